@@ -1,42197 +1,123 @@
+--------------------------- MODULE PolicerCluster ---------------------------
+(* C27 - repeated policer cycles restore the required replicas.
+
+   A cluster of nodes 1..N, one object (objects are independent), a policy of one or more REP rules
+   (`rules`: sequence of [nodes |-> container nodes sorted for the object, n |-> copies]; lists may overlap and
+   need not contain all nodes: a node outside every list may still hold a copy). `holders` = nodes that store the object. One action = one policy check of the object by one
+   of its holders: exactly the decision function F of Policer.tla (module extended here, so the C27 model and
+   the C26 model cannot drift apart), evaluated with the answers the other nodes would give right now:
+   "has" for a holder, 404 + successful replication for a reachable non-holder, unreachable for a node in
+   `down`, 404 + refused replication for a node in `refuse`. The result moves replicas: holders' = (holders + nodes that stored) - (the node itself if it
+   removed its copy).  Replication inside a check is synchronous in the code (HandleTask runs in the calling
+   goroutine), so a check is one step; checks of different nodes interleave arbitrarily.
+
+   Liveness (stable netmap, all nodes reachable, weak fairness on every node's check):
+       <>[] Converged,   Converged == primaries hold the object /\ no holder's check issues a replication task.
+   Bounded form used on the real code: nodes check in rounds (every holder once per round, any order); after
+   MaxRounds rounds every initial distribution is converged (invariant ConvergedInTime, found by TLC).
+   Safety of the replicator: reported successes <= requested, only for nodes that stored (TaskOK).       *)
+EXTENDS Policer
+
+CONSTANTS N,          \* cluster size
+          Reps,       \* REP values explored
+          RuleCounts, \* numbers of REP rules explored, e.g. {1} or {2}
+          ListLens,   \* lengths of node lists explored
+          MaxRounds   \* bound of the bounded-convergence invariant
+
+Cluster == 1..N
+\* the decision function is written for the local node `Local`: rename node n <-> Local
+Swap(n, x) == IF x = n THEN Local ELSE IF x = Local THEN n ELSE x
+
+VARIABLES rules,            \* the policy (constant during a behaviour)
+          holders,          \* who stores the object
+          ran, round,       \* round bookkeeping for the bounded form
+          last              \* observation of the last check: [node, down, del, tasks, stored]
+cvars == <<rules, holders, ran, round, last>>
+
+Scn(n, hs, down, refuse) ==
+  [typ |-> "REG",
+   rep |-> [kx \in 1..Len(rules) |-> [nodes |-> [ix \in 1..Len(rules[kx].nodes) |-> Swap(n, rules[kx].nodes[ix])],
+                                      n |-> rules[kx].n]],
+   ec |-> <<>>,
+   attr |-> "none", part |-> [rule |-> 0, idx |-> 0], neterr |-> "none", inNetmap |-> "y", shards |-> 1,
+   nm |-> [x \in Nodes |-> "n"],
+   ans |-> [x \in Nodes |-> IF Swap(n, x) \in down THEN "err" ELSE IF Swap(n, x) \in hs THEN "has"
+                            ELSE IF Swap(n, x) \in refuse THEN "nfFail" ELSE "nfOk"]]
+
+MapSeq(n, q) == [ix \in 1..Len(q) |-> Swap(n, q[ix])]
+\* decision of node n, node names translated back
+Decide27(n, hs, down, refuse) ==
+  LET f == F(Scn(n, hs, down, refuse), FALSE) IN
+  [node |-> n, down |-> down, del |-> f.del,
+   tasks |-> [k \in 1..Len(f.tasks) |-> [q |-> f.tasks[k].q, nodes |-> MapSeq(n, f.tasks[k].nodes), ok |-> MapSeq(n, f.tasks[k].ok)]],
+   stored |-> {Swap(n, x) : x \in f.stored}]
+After(hs, d) == (hs \cup d.stored) \ (IF d.del # "none" THEN {d.node} ELSE {})
+
+\* one policy check by holder n while the nodes in down are unreachable and the nodes in refuse answer HEAD but
+\* do not accept replicas
+Check(n, down, refuse) ==
+  /\ n \in holders /\ n \notin down
+  /\ LET d == Decide27(n, holders, down, refuse) IN
+       /\ last' = d
+       /\ holders' = After(holders, d)
+  /\ UNCHANGED rules
+
+\* unordered checks (liveness) ...
+Run(n) == Check(n, {}, {}) /\ UNCHANGED <<ran, round>>
+\* ... and the round discipline of the bounded form: every current holder checks once per round
+RoundRun(n) == /\ n \notin ran
+               /\ round <= MaxRounds               \* (bounds the counter; one more round is watched)
+               /\ Check(n, {}, {})
+               /\ LET ran1 == ran \cup {n} IN
+                  IF holders' \subseteq ran1 THEN ran' = {} /\ round' = round + 1
+                                            ELSE ran' = ran1 /\ UNCHANGED round
+
+CLists == {q \in DistinctSeqs(Cluster, N) : Len(q) \in ListLens}
+CRules == UNION {{[nodes |-> q, n |-> n] : n \in {x \in Reps : x <= Len(q)}} : q \in CLists}
+NoLast == [node |-> 0, down |-> {}, del |-> "none", tasks |-> <<>>, stored |-> {}]
+CInit == /\ rules \in UNION {[1..m -> CRules] : m \in RuleCounts}
+         /\ holders \in (SUBSET Cluster) \ {{}}
+         /\ ran = {} /\ round = 0 /\ last = NoLast
+         /\ s = 0 /\ pc = "cluster" /\ r = 0 /\ i = 0 /\ c = 0 /\ e = 0 /\ out = 0
+
+\* a replication task that carries the object (post-placement replication, re-created EC part): the replicator of
+\* node n works through `nodes` in order until q of them stored; the local node stores directly
+RECURSIVE ReplT(_, _, _, _, _, _)
+ReplT(n, nodes, j, q, bad, acc) ==
+  IF j > Len(nodes) \/ q = 0 THEN acc
+  ELSE IF nodes[j] = n \/ nodes[j] \notin bad THEN ReplT(n, nodes, j + 1, q - 1, bad, Append(acc, nodes[j]))
+  ELSE ReplT(n, nodes, j + 1, q, bad, acc)
+PutTask(n, nodes, q, down, refuse) ==
+  /\ n \notin down
+  /\ LET ok == ReplT(n, nodes, 1, q, down \cup refuse, <<>>) IN
+       /\ last' = [node |-> n, down |-> down, del |-> "none", tasks |-> <<[q |-> q, nodes |-> nodes, ok |-> ok]>>,
+                   stored |-> Range(ok)]
+       /\ holders' = holders \cup Range(ok)
+  /\ UNCHANGED rules
+
+Live == CInit /\ [][\E n \in Cluster : Run(n) /\ UNCHANGED vars]_<<cvars, vars>>
+             /\ \A n \in Cluster : WF_<<cvars, vars>>(Run(n) /\ UNCHANGED vars)
+Rounds == CInit /\ [][\E n \in Cluster : RoundRun(n) /\ UNCHANGED vars]_<<cvars, vars>>
+
+-----------------------------------------------------------------------------
+Primaries == UNION {{rules[kx].nodes[j] : j \in 1..rules[kx].n} : kx \in 1..Len(rules)}
 \* a check "replicates" when it hands the replicator a task with at least one candidate node. (With overlapping
 \* rules the code as found keeps calling the replicator with an EMPTY candidate list: a holder remembered from
 \* an earlier rule does not lower the shortage of a later rule - a phantom shortage that copies nothing.)
 Replicates(d) == \E k \in 1..Len(d.tasks) : Len(d.tasks[k].nodes) > 0
 Quiet(hs) == \A n \in hs : LET d == Decide27(n, hs, {}, {}) IN ~Replicates(d) /\ d.del = "none"
 NoTasks(hs) == \A n \in hs : ~Replicates(Decide27(n, hs, {}, {}))
--\* a check "replicates" when it hands the replicator a task with at least one candidate node. (With overlapping
-\* rules the code as found keeps calling the replicator with an EMPTY candidate list: a holder remembered from
-\* an earlier rule does not lower the shortage of a later rule - a phantom shortage that copies nothing.)
-Replicates(d) == \E k \in 1..Len(d.tasks) : Len(d.tasks[k].nodes) > 0
-Quiet(hs) == \A n \in hs : LET d == Decide27(n, hs, {}, {}) IN ~Replicates(d) /\ d.del = "none"
-NoTasks(hs) == \A n \in hs : ~Replicates(Decide27(n, hs, {}, {}))
--\* a check "replicates" when it hands the replicator a task with at least one candidate node. (With overlapping
-\* rules the code as found keeps calling the replicator with an EMPTY candidate list: a holder remembered from
-\* an earlier rule does not lower the shortage of a later rule - a phantom shortage that copies nothing.)
-Replicates(d) == \E k \in 1..Len(d.tasks) : Len(d.tasks[k].nodes) > 0
-Quiet(hs) == \A n \in hs : LET d == Decide27(n, hs, {}, {}) IN ~Replicates(d) /\ d.del = "none"
-NoTasks(hs) == \A n \in hs : ~Replicates(Decide27(n, hs, {}, {}))
--\* a check "replicates" when it hands the replicator a task with at least one candidate node. (With overlapping
-\* rules the code as found keeps calling the replicator with an EMPTY candidate list: a holder remembered from
-\* an earlier rule does not lower the shortage of a later rule - a phantom shortage that copies nothing.)
-Replicates(d) == \E k \in 1..Len(d.tasks) : Len(d.tasks[k].nodes) > 0
-Quiet(hs) == \A n \in hs : LET d == Decide27(n, hs, {}, {}) IN ~Replicates(d) /\ d.del = "none"
-NoTasks(hs) == \A n \in hs : ~Replicates(Decide27(n, hs, {}, {}))
--\* a check "replicates" when it hands the replicator a task with at least one candidate node. (With overlapping
-\* rules the code as found keeps calling the replicator with an EMPTY candidate list: a holder remembered from
-\* an earlier rule does not lower the shortage of a later rule - a phantom shortage that copies nothing.)
-Replicates(d) == \E k \in 1..Len(d.tasks) : Len(d.tasks[k].nodes) > 0
-Quiet(hs) == \A n \in hs : LET d == Decide27(n, hs, {}, {}) IN ~Replicates(d) /\ d.del = "none"
-NoTasks(hs) == \A n \in hs : ~Replicates(Decide27(n, hs, {}, {}))
--\* a check "replicates" when it hands the replicator a task with at least one candidate node. (With overlapping
-\* rules the code as found keeps calling the replicator with an EMPTY candidate list: a holder remembered from
-\* an earlier rule does not lower the shortage of a later rule - a phantom shortage that copies nothing.)
-Replicates(d) == \E k \in 1..Len(d.tasks) : Len(d.tasks[k].nodes) > 0
-Quiet(hs) == \A n \in hs : LET d == Decide27(n, hs, {}, {}) IN ~Replicates(d) /\ d.del = "none"
-NoTasks(hs) == \A n \in hs : ~Replicates(Decide27(n, hs, {}, {}))
--\* a check "replicates" when it hands the replicator a task with at least one candidate node. (With overlapping
-\* rules the code as found keeps calling the replicator with an EMPTY candidate list: a holder remembered from
-\* an earlier rule does not lower the shortage of a later rule - a phantom shortage that copies nothing.)
-Replicates(d) == \E k \in 1..Len(d.tasks) : Len(d.tasks[k].nodes) > 0
-Quiet(hs) == \A n \in hs : LET d == Decide27(n, hs, {}, {}) IN ~Replicates(d) /\ d.del = "none"
-NoTasks(hs) == \A n \in hs : ~Replicates(Decide27(n, hs, {}, {}))
--\* a check "replicates" when it hands the replicator a task with at least one candidate node. (With overlapping
-\* rules the code as found keeps calling the replicator with an EMPTY candidate list: a holder remembered from
-\* an earlier rule does not lower the shortage of a later rule - a phantom shortage that copies nothing.)
-Replicates(d) == \E k \in 1..Len(d.tasks) : Len(d.tasks[k].nodes) > 0
-Quiet(hs) == \A n \in hs : LET d == Decide27(n, hs, {}, {}) IN ~Replicates(d) /\ d.del = "none"
-NoTasks(hs) == \A n \in hs : ~Replicates(Decide27(n, hs, {}, {}))
--\* a check "replicates" when it hands the replicator a task with at least one candidate node. (With overlapping
-\* rules the code as found keeps calling the replicator with an EMPTY candidate list: a holder remembered from
-\* an earlier rule does not lower the shortage of a later rule - a phantom shortage that copies nothing.)
-Replicates(d) == \E k \in 1..Len(d.tasks) : Len(d.tasks[k].nodes) > 0
-Quiet(hs) == \A n \in hs : LET d == Decide27(n, hs, {}, {}) IN ~Replicates(d) /\ d.del = "none"
-NoTasks(hs) == \A n \in hs : ~Replicates(Decide27(n, hs, {}, {}))
--\* a check "replicates" when it hands the replicator a task with at least one candidate node. (With overlapping
-\* rules the code as found keeps calling the replicator with an EMPTY candidate list: a holder remembered from
-\* an earlier rule does not lower the shortage of a later rule - a phantom shortage that copies nothing.)
-Replicates(d) == \E k \in 1..Len(d.tasks) : Len(d.tasks[k].nodes) > 0
-Quiet(hs) == \A n \in hs : LET d == Decide27(n, hs, {}, {}) IN ~Replicates(d) /\ d.del = "none"
-NoTasks(hs) == \A n \in hs : ~Replicates(Decide27(n, hs, {}, {}))
--\* a check "replicates" when it hands the replicator a task with at least one candidate node. (With overlapping
-\* rules the code as found keeps calling the replicator with an EMPTY candidate list: a holder remembered from
-\* an earlier rule does not lower the shortage of a later rule - a phantom shortage that copies nothing.)
-Replicates(d) == \E k \in 1..Len(d.tasks) : Len(d.tasks[k].nodes) > 0
-Quiet(hs) == \A n \in hs : LET d == Decide27(n, hs, {}, {}) IN ~Replicates(d) /\ d.del = "none"
-NoTasks(hs) == \A n \in hs : ~Replicates(Decide27(n, hs, {}, {}))
--\* a check "replicates" when it hands the replicator a task with at least one candidate node. (With overlapping
-\* rules the code as found keeps calling the replicator with an EMPTY candidate list: a holder remembered from
-\* an earlier rule does not lower the shortage of a later rule - a phantom shortage that copies nothing.)
-Replicates(d) == \E k \in 1..Len(d.tasks) : Len(d.tasks[k].nodes) > 0
-Quiet(hs) == \A n \in hs : LET d == Decide27(n, hs, {}, {}) IN ~Replicates(d) /\ d.del = "none"
-NoTasks(hs) == \A n \in hs : ~Replicates(Decide27(n, hs, {}, {}))
--\* a check "replicates" when it hands the replicator a task with at least one candidate node. (With overlapping
-\* rules the code as found keeps calling the replicator with an EMPTY candidate list: a holder remembered from
-\* an earlier rule does not lower the shortage of a later rule - a phantom shortage that copies nothing.)
-Replicates(d) == \E k \in 1..Len(d.tasks) : Len(d.tasks[k].nodes) > 0
-Quiet(hs) == \A n \in hs : LET d == Decide27(n, hs, {}, {}) IN ~Replicates(d) /\ d.del = "none"
-NoTasks(hs) == \A n \in hs : ~Replicates(Decide27(n, hs, {}, {}))
--\* a check "replicates" when it hands the replicator a task with at least one candidate node. (With overlapping
-\* rules the code as found keeps calling the replicator with an EMPTY candidate list: a holder remembered from
-\* an earlier rule does not lower the shortage of a later rule - a phantom shortage that copies nothing.)
-Replicates(d) == \E k \in 1..Len(d.tasks) : Len(d.tasks[k].nodes) > 0
-Quiet(hs) == \A n \in hs : LET d == Decide27(n, hs, {}, {}) IN ~Replicates(d) /\ d.del = "none"
-NoTasks(hs) == \A n \in hs : ~Replicates(Decide27(n, hs, {}, {}))
--\* a check "replicates" when it hands the replicator a task with at least one candidate node. (With overlapping
-\* rules the code as found keeps calling the replicator with an EMPTY candidate list: a holder remembered from
-\* an earlier rule does not lower the shortage of a later rule - a phantom shortage that copies nothing.)
-Replicates(d) == \E k \in 1..Len(d.tasks) : Len(d.tasks[k].nodes) > 0
-Quiet(hs) == \A n \in hs : LET d == Decide27(n, hs, {}, {}) IN ~Replicates(d) /\ d.del = "none"
-NoTasks(hs) == \A n \in hs : ~Replicates(Decide27(n, hs, {}, {}))
--\* a check "replicates" when it hands the replicator a task with at least one candidate node. (With overlapping
-\* rules the code as found keeps calling the replicator with an EMPTY candidate list: a holder remembered from
-\* an earlier rule does not lower the shortage of a later rule - a phantom shortage that copies nothing.)
-Replicates(d) == \E k \in 1..Len(d.tasks) : Len(d.tasks[k].nodes) > 0
-Quiet(hs) == \A n \in hs : LET d == Decide27(n, hs, {}, {}) IN ~Replicates(d) /\ d.del = "none"
-NoTasks(hs) == \A n \in hs : ~Replicates(Decide27(n, hs, {}, {}))
--\* a check "replicates" when it hands the replicator a task with at least one candidate node. (With overlapping
-\* rules the code as found keeps calling the replicator with an EMPTY candidate list: a holder remembered from
-\* an earlier rule does not lower the shortage of a later rule - a phantom shortage that copies nothing.)
-Replicates(d) == \E k \in 1..Len(d.tasks) : Len(d.tasks[k].nodes) > 0
-Quiet(hs) == \A n \in hs : LET d == Decide27(n, hs, {}, {}) IN ~Replicates(d) /\ d.del = "none"
-NoTasks(hs) == \A n \in hs : ~Replicates(Decide27(n, hs, {}, {}))
--\* a check "replicates" when it hands the replicator a task with at least one candidate node. (With overlapping
-\* rules the code as found keeps calling the replicator with an EMPTY candidate list: a holder remembered from
-\* an earlier rule does not lower the shortage of a later rule - a phantom shortage that copies nothing.)
-Replicates(d) == \E k \in 1..Len(d.tasks) : Len(d.tasks[k].nodes) > 0
-Quiet(hs) == \A n \in hs : LET d == Decide27(n, hs, {}, {}) IN ~Replicates(d) /\ d.del = "none"
-NoTasks(hs) == \A n \in hs : ~Replicates(Decide27(n, hs, {}, {}))
--\* a check "replicates" when it hands the replicator a task with at least one candidate node. (With overlapping
-\* rules the code as found keeps calling the replicator with an EMPTY candidate list: a holder remembered from
-\* an earlier rule does not lower the shortage of a later rule - a phantom shortage that copies nothing.)
-Replicates(d) == \E k \in 1..Len(d.tasks) : Len(d.tasks[k].nodes) > 0
-Quiet(hs) == \A n \in hs : LET d == Decide27(n, hs, {}, {}) IN ~Replicates(d) /\ d.del = "none"
-NoTasks(hs) == \A n \in hs : ~Replicates(Decide27(n, hs, {}, {}))
--\* a check "replicates" when it hands the replicator a task with at least one candidate node. (With overlapping
-\* rules the code as found keeps calling the replicator with an EMPTY candidate list: a holder remembered from
-\* an earlier rule does not lower the shortage of a later rule - a phantom shortage that copies nothing.)
-Replicates(d) == \E k \in 1..Len(d.tasks) : Len(d.tasks[k].nodes) > 0
-Quiet(hs) == \A n \in hs : LET d == Decide27(n, hs, {}, {}) IN ~Replicates(d) /\ d.del = "none"
-NoTasks(hs) == \A n \in hs : ~Replicates(Decide27(n, hs, {}, {}))
--\* a check "replicates" when it hands the replicator a task with at least one candidate node. (With overlapping
-\* rules the code as found keeps calling the replicator with an EMPTY candidate list: a holder remembered from
-\* an earlier rule does not lower the shortage of a later rule - a phantom shortage that copies nothing.)
-Replicates(d) == \E k \in 1..Len(d.tasks) : Len(d.tasks[k].nodes) > 0
-Quiet(hs) == \A n \in hs : LET d == Decide27(n, hs, {}, {}) IN ~Replicates(d) /\ d.del = "none"
-NoTasks(hs) == \A n \in hs : ~Replicates(Decide27(n, hs, {}, {}))
--\* a check "replicates" when it hands the replicator a task with at least one candidate node. (With overlapping
-\* rules the code as found keeps calling the replicator with an EMPTY candidate list: a holder remembered from
-\* an earlier rule does not lower the shortage of a later rule - a phantom shortage that copies nothing.)
-Replicates(d) == \E k \in 1..Len(d.tasks) : Len(d.tasks[k].nodes) > 0
-Quiet(hs) == \A n \in hs : LET d == Decide27(n, hs, {}, {}) IN ~Replicates(d) /\ d.del = "none"
-NoTasks(hs) == \A n \in hs : ~Replicates(Decide27(n, hs, {}, {}))
--\* a check "replicates" when it hands the replicator a task with at least one candidate node. (With overlapping
-\* rules the code as found keeps calling the replicator with an EMPTY candidate list: a holder remembered from
-\* an earlier rule does not lower the shortage of a later rule - a phantom shortage that copies nothing.)
-Replicates(d) == \E k \in 1..Len(d.tasks) : Len(d.tasks[k].nodes) > 0
-Quiet(hs) == \A n \in hs : LET d == Decide27(n, hs, {}, {}) IN ~Replicates(d) /\ d.del = "none"
-NoTasks(hs) == \A n \in hs : ~Replicates(Decide27(n, hs, {}, {}))
--\* a check "replicates" when it hands the replicator a task with at least one candidate node. (With overlapping
-\* rules the code as found keeps calling the replicator with an EMPTY candidate list: a holder remembered from
-\* an earlier rule does not lower the shortage of a later rule - a phantom shortage that copies nothing.)
-Replicates(d) == \E k \in 1..Len(d.tasks) : Len(d.tasks[k].nodes) > 0
-Quiet(hs) == \A n \in hs : LET d == Decide27(n, hs, {}, {}) IN ~Replicates(d) /\ d.del = "none"
-NoTasks(hs) == \A n \in hs : ~Replicates(Decide27(n, hs, {}, {}))
--\* a check "replicates" when it hands the replicator a task with at least one candidate node. (With overlapping
-\* rules the code as found keeps calling the replicator with an EMPTY candidate list: a holder remembered from
-\* an earlier rule does not lower the shortage of a later rule - a phantom shortage that copies nothing.)
-Replicates(d) == \E k \in 1..Len(d.tasks) : Len(d.tasks[k].nodes) > 0
-Quiet(hs) == \A n \in hs : LET d == Decide27(n, hs, {}, {}) IN ~Replicates(d) /\ d.del = "none"
-NoTasks(hs) == \A n \in hs : ~Replicates(Decide27(n, hs, {}, {}))
--\* a check "replicates" when it hands the replicator a task with at least one candidate node. (With overlapping
-\* rules the code as found keeps calling the replicator with an EMPTY candidate list: a holder remembered from
-\* an earlier rule does not lower the shortage of a later rule - a phantom shortage that copies nothing.)
-Replicates(d) == \E k \in 1..Len(d.tasks) : Len(d.tasks[k].nodes) > 0
-Quiet(hs) == \A n \in hs : LET d == Decide27(n, hs, {}, {}) IN ~Replicates(d) /\ d.del = "none"
-NoTasks(hs) == \A n \in hs : ~Replicates(Decide27(n, hs, {}, {}))
--\* a check "replicates" when it hands the replicator a task with at least one candidate node. (With overlapping
-\* rules the code as found keeps calling the replicator with an EMPTY candidate list: a holder remembered from
-\* an earlier rule does not lower the shortage of a later rule - a phantom shortage that copies nothing.)
-Replicates(d) == \E k \in 1..Len(d.tasks) : Len(d.tasks[k].nodes) > 0
-Quiet(hs) == \A n \in hs : LET d == Decide27(n, hs, {}, {}) IN ~Replicates(d) /\ d.del = "none"
-NoTasks(hs) == \A n \in hs : ~Replicates(Decide27(n, hs, {}, {}))
--\* a check "replicates" when it hands the replicator a task with at least one candidate node. (With overlapping
-\* rules the code as found keeps calling the replicator with an EMPTY candidate list: a holder remembered from
-\* an earlier rule does not lower the shortage of a later rule - a phantom shortage that copies nothing.)
-Replicates(d) == \E k \in 1..Len(d.tasks) : Len(d.tasks[k].nodes) > 0
-Quiet(hs) == \A n \in hs : LET d == Decide27(n, hs, {}, {}) IN ~Replicates(d) /\ d.del = "none"
-NoTasks(hs) == \A n \in hs : ~Replicates(Decide27(n, hs, {}, {}))
- \* a check "replicates" when it hands the replicator a task with at least one candidate node. (With overlapping
-\* rules the code as found keeps calling the replicator with an EMPTY candidate list: a holder remembered from
-\* an earlier rule does not lower the shortage of a later rule - a phantom shortage that copies nothing.)
-Replicates(d) == \E k \in 1..Len(d.tasks) : Len(d.tasks[k].nodes) > 0
-Quiet(hs) == \A n \in hs : LET d == Decide27(n, hs, {}, {}) IN ~Replicates(d) /\ d.del = "none"
-NoTasks(hs) == \A n \in hs : ~Replicates(Decide27(n, hs, {}, {}))
-M\* a check "replicates" when it hands the replicator a task with at least one candidate node. (With overlapping
-\* rules the code as found keeps calling the replicator with an EMPTY candidate list: a holder remembered from
-\* an earlier rule does not lower the shortage of a later rule - a phantom shortage that copies nothing.)
-Replicates(d) == \E k \in 1..Len(d.tasks) : Len(d.tasks[k].nodes) > 0
-Quiet(hs) == \A n \in hs : LET d == Decide27(n, hs, {}, {}) IN ~Replicates(d) /\ d.del = "none"
-NoTasks(hs) == \A n \in hs : ~Replicates(Decide27(n, hs, {}, {}))
-O\* a check "replicates" when it hands the replicator a task with at least one candidate node. (With overlapping
-\* rules the code as found keeps calling the replicator with an EMPTY candidate list: a holder remembered from
-\* an earlier rule does not lower the shortage of a later rule - a phantom shortage that copies nothing.)
-Replicates(d) == \E k \in 1..Len(d.tasks) : Len(d.tasks[k].nodes) > 0
-Quiet(hs) == \A n \in hs : LET d == Decide27(n, hs, {}, {}) IN ~Replicates(d) /\ d.del = "none"
-NoTasks(hs) == \A n \in hs : ~Replicates(Decide27(n, hs, {}, {}))
-D\* a check "replicates" when it hands the replicator a task with at least one candidate node. (With overlapping
-\* rules the code as found keeps calling the replicator with an EMPTY candidate list: a holder remembered from
-\* an earlier rule does not lower the shortage of a later rule - a phantom shortage that copies nothing.)
-Replicates(d) == \E k \in 1..Len(d.tasks) : Len(d.tasks[k].nodes) > 0
-Quiet(hs) == \A n \in hs : LET d == Decide27(n, hs, {}, {}) IN ~Replicates(d) /\ d.del = "none"
-NoTasks(hs) == \A n \in hs : ~Replicates(Decide27(n, hs, {}, {}))
-U\* a check "replicates" when it hands the replicator a task with at least one candidate node. (With overlapping
-\* rules the code as found keeps calling the replicator with an EMPTY candidate list: a holder remembered from
-\* an earlier rule does not lower the shortage of a later rule - a phantom shortage that copies nothing.)
-Replicates(d) == \E k \in 1..Len(d.tasks) : Len(d.tasks[k].nodes) > 0
-Quiet(hs) == \A n \in hs : LET d == Decide27(n, hs, {}, {}) IN ~Replicates(d) /\ d.del = "none"
-NoTasks(hs) == \A n \in hs : ~Replicates(Decide27(n, hs, {}, {}))
-L\* a check "replicates" when it hands the replicator a task with at least one candidate node. (With overlapping
-\* rules the code as found keeps calling the replicator with an EMPTY candidate list: a holder remembered from
-\* an earlier rule does not lower the shortage of a later rule - a phantom shortage that copies nothing.)
-Replicates(d) == \E k \in 1..Len(d.tasks) : Len(d.tasks[k].nodes) > 0
-Quiet(hs) == \A n \in hs : LET d == Decide27(n, hs, {}, {}) IN ~Replicates(d) /\ d.del = "none"
-NoTasks(hs) == \A n \in hs : ~Replicates(Decide27(n, hs, {}, {}))
-E\* a check "replicates" when it hands the replicator a task with at least one candidate node. (With overlapping
-\* rules the code as found keeps calling the replicator with an EMPTY candidate list: a holder remembered from
-\* an earlier rule does not lower the shortage of a later rule - a phantom shortage that copies nothing.)
-Replicates(d) == \E k \in 1..Len(d.tasks) : Len(d.tasks[k].nodes) > 0
-Quiet(hs) == \A n \in hs : LET d == Decide27(n, hs, {}, {}) IN ~Replicates(d) /\ d.del = "none"
-NoTasks(hs) == \A n \in hs : ~Replicates(Decide27(n, hs, {}, {}))
- \* a check "replicates" when it hands the replicator a task with at least one candidate node. (With overlapping
-\* rules the code as found keeps calling the replicator with an EMPTY candidate list: a holder remembered from
-\* an earlier rule does not lower the shortage of a later rule - a phantom shortage that copies nothing.)
-Replicates(d) == \E k \in 1..Len(d.tasks) : Len(d.tasks[k].nodes) > 0
-Quiet(hs) == \A n \in hs : LET d == Decide27(n, hs, {}, {}) IN ~Replicates(d) /\ d.del = "none"
-NoTasks(hs) == \A n \in hs : ~Replicates(Decide27(n, hs, {}, {}))
-P\* a check "replicates" when it hands the replicator a task with at least one candidate node. (With overlapping
-\* rules the code as found keeps calling the replicator with an EMPTY candidate list: a holder remembered from
-\* an earlier rule does not lower the shortage of a later rule - a phantom shortage that copies nothing.)
-Replicates(d) == \E k \in 1..Len(d.tasks) : Len(d.tasks[k].nodes) > 0
-Quiet(hs) == \A n \in hs : LET d == Decide27(n, hs, {}, {}) IN ~Replicates(d) /\ d.del = "none"
-NoTasks(hs) == \A n \in hs : ~Replicates(Decide27(n, hs, {}, {}))
-o\* a check "replicates" when it hands the replicator a task with at least one candidate node. (With overlapping
-\* rules the code as found keeps calling the replicator with an EMPTY candidate list: a holder remembered from
-\* an earlier rule does not lower the shortage of a later rule - a phantom shortage that copies nothing.)
-Replicates(d) == \E k \in 1..Len(d.tasks) : Len(d.tasks[k].nodes) > 0
-Quiet(hs) == \A n \in hs : LET d == Decide27(n, hs, {}, {}) IN ~Replicates(d) /\ d.del = "none"
-NoTasks(hs) == \A n \in hs : ~Replicates(Decide27(n, hs, {}, {}))
-l\* a check "replicates" when it hands the replicator a task with at least one candidate node. (With overlapping
-\* rules the code as found keeps calling the replicator with an EMPTY candidate list: a holder remembered from
-\* an earlier rule does not lower the shortage of a later rule - a phantom shortage that copies nothing.)
-Replicates(d) == \E k \in 1..Len(d.tasks) : Len(d.tasks[k].nodes) > 0
-Quiet(hs) == \A n \in hs : LET d == Decide27(n, hs, {}, {}) IN ~Replicates(d) /\ d.del = "none"
-NoTasks(hs) == \A n \in hs : ~Replicates(Decide27(n, hs, {}, {}))
-i\* a check "replicates" when it hands the replicator a task with at least one candidate node. (With overlapping
-\* rules the code as found keeps calling the replicator with an EMPTY candidate list: a holder remembered from
-\* an earlier rule does not lower the shortage of a later rule - a phantom shortage that copies nothing.)
-Replicates(d) == \E k \in 1..Len(d.tasks) : Len(d.tasks[k].nodes) > 0
-Quiet(hs) == \A n \in hs : LET d == Decide27(n, hs, {}, {}) IN ~Replicates(d) /\ d.del = "none"
-NoTasks(hs) == \A n \in hs : ~Replicates(Decide27(n, hs, {}, {}))
-c\* a check "replicates" when it hands the replicator a task with at least one candidate node. (With overlapping
-\* rules the code as found keeps calling the replicator with an EMPTY candidate list: a holder remembered from
-\* an earlier rule does not lower the shortage of a later rule - a phantom shortage that copies nothing.)
-Replicates(d) == \E k \in 1..Len(d.tasks) : Len(d.tasks[k].nodes) > 0
-Quiet(hs) == \A n \in hs : LET d == Decide27(n, hs, {}, {}) IN ~Replicates(d) /\ d.del = "none"
-NoTasks(hs) == \A n \in hs : ~Replicates(Decide27(n, hs, {}, {}))
-e\* a check "replicates" when it hands the replicator a task with at least one candidate node. (With overlapping
-\* rules the code as found keeps calling the replicator with an EMPTY candidate list: a holder remembered from
-\* an earlier rule does not lower the shortage of a later rule - a phantom shortage that copies nothing.)
-Replicates(d) == \E k \in 1..Len(d.tasks) : Len(d.tasks[k].nodes) > 0
-Quiet(hs) == \A n \in hs : LET d == Decide27(n, hs, {}, {}) IN ~Replicates(d) /\ d.del = "none"
-NoTasks(hs) == \A n \in hs : ~Replicates(Decide27(n, hs, {}, {}))
-r\* a check "replicates" when it hands the replicator a task with at least one candidate node. (With overlapping
-\* rules the code as found keeps calling the replicator with an EMPTY candidate list: a holder remembered from
-\* an earlier rule does not lower the shortage of a later rule - a phantom shortage that copies nothing.)
-Replicates(d) == \E k \in 1..Len(d.tasks) : Len(d.tasks[k].nodes) > 0
-Quiet(hs) == \A n \in hs : LET d == Decide27(n, hs, {}, {}) IN ~Replicates(d) /\ d.del = "none"
-NoTasks(hs) == \A n \in hs : ~Replicates(Decide27(n, hs, {}, {}))
-C\* a check "replicates" when it hands the replicator a task with at least one candidate node. (With overlapping
-\* rules the code as found keeps calling the replicator with an EMPTY candidate list: a holder remembered from
-\* an earlier rule does not lower the shortage of a later rule - a phantom shortage that copies nothing.)
-Replicates(d) == \E k \in 1..Len(d.tasks) : Len(d.tasks[k].nodes) > 0
-Quiet(hs) == \A n \in hs : LET d == Decide27(n, hs, {}, {}) IN ~Replicates(d) /\ d.del = "none"
-NoTasks(hs) == \A n \in hs : ~Replicates(Decide27(n, hs, {}, {}))
-l\* a check "replicates" when it hands the replicator a task with at least one candidate node. (With overlapping
-\* rules the code as found keeps calling the replicator with an EMPTY candidate list: a holder remembered from
-\* an earlier rule does not lower the shortage of a later rule - a phantom shortage that copies nothing.)
-Replicates(d) == \E k \in 1..Len(d.tasks) : Len(d.tasks[k].nodes) > 0
-Quiet(hs) == \A n \in hs : LET d == Decide27(n, hs, {}, {}) IN ~Replicates(d) /\ d.del = "none"
-NoTasks(hs) == \A n \in hs : ~Replicates(Decide27(n, hs, {}, {}))
-u\* a check "replicates" when it hands the replicator a task with at least one candidate node. (With overlapping
-\* rules the code as found keeps calling the replicator with an EMPTY candidate list: a holder remembered from
-\* an earlier rule does not lower the shortage of a later rule - a phantom shortage that copies nothing.)
-Replicates(d) == \E k \in 1..Len(d.tasks) : Len(d.tasks[k].nodes) > 0
-Quiet(hs) == \A n \in hs : LET d == Decide27(n, hs, {}, {}) IN ~Replicates(d) /\ d.del = "none"
-NoTasks(hs) == \A n \in hs : ~Replicates(Decide27(n, hs, {}, {}))
-s\* a check "replicates" when it hands the replicator a task with at least one candidate node. (With overlapping
-\* rules the code as found keeps calling the replicator with an EMPTY candidate list: a holder remembered from
-\* an earlier rule does not lower the shortage of a later rule - a phantom shortage that copies nothing.)
-Replicates(d) == \E k \in 1..Len(d.tasks) : Len(d.tasks[k].nodes) > 0
-Quiet(hs) == \A n \in hs : LET d == Decide27(n, hs, {}, {}) IN ~Replicates(d) /\ d.del = "none"
-NoTasks(hs) == \A n \in hs : ~Replicates(Decide27(n, hs, {}, {}))
-t\* a check "replicates" when it hands the replicator a task with at least one candidate node. (With overlapping
-\* rules the code as found keeps calling the replicator with an EMPTY candidate list: a holder remembered from
-\* an earlier rule does not lower the shortage of a later rule - a phantom shortage that copies nothing.)
-Replicates(d) == \E k \in 1..Len(d.tasks) : Len(d.tasks[k].nodes) > 0
-Quiet(hs) == \A n \in hs : LET d == Decide27(n, hs, {}, {}) IN ~Replicates(d) /\ d.del = "none"
-NoTasks(hs) == \A n \in hs : ~Replicates(Decide27(n, hs, {}, {}))
-e\* a check "replicates" when it hands the replicator a task with at least one candidate node. (With overlapping
-\* rules the code as found keeps calling the replicator with an EMPTY candidate list: a holder remembered from
-\* an earlier rule does not lower the shortage of a later rule - a phantom shortage that copies nothing.)
-Replicates(d) == \E k \in 1..Len(d.tasks) : Len(d.tasks[k].nodes) > 0
-Quiet(hs) == \A n \in hs : LET d == Decide27(n, hs, {}, {}) IN ~Replicates(d) /\ d.del = "none"
-NoTasks(hs) == \A n \in hs : ~Replicates(Decide27(n, hs, {}, {}))
-r\* a check "replicates" when it hands the replicator a task with at least one candidate node. (With overlapping
-\* rules the code as found keeps calling the replicator with an EMPTY candidate list: a holder remembered from
-\* an earlier rule does not lower the shortage of a later rule - a phantom shortage that copies nothing.)
-Replicates(d) == \E k \in 1..Len(d.tasks) : Len(d.tasks[k].nodes) > 0
-Quiet(hs) == \A n \in hs : LET d == Decide27(n, hs, {}, {}) IN ~Replicates(d) /\ d.del = "none"
-NoTasks(hs) == \A n \in hs : ~Replicates(Decide27(n, hs, {}, {}))
- \* a check "replicates" when it hands the replicator a task with at least one candidate node. (With overlapping
-\* rules the code as found keeps calling the replicator with an EMPTY candidate list: a holder remembered from
-\* an earlier rule does not lower the shortage of a later rule - a phantom shortage that copies nothing.)
-Replicates(d) == \E k \in 1..Len(d.tasks) : Len(d.tasks[k].nodes) > 0
-Quiet(hs) == \A n \in hs : LET d == Decide27(n, hs, {}, {}) IN ~Replicates(d) /\ d.del = "none"
-NoTasks(hs) == \A n \in hs : ~Replicates(Decide27(n, hs, {}, {}))
--\* a check "replicates" when it hands the replicator a task with at least one candidate node. (With overlapping
-\* rules the code as found keeps calling the replicator with an EMPTY candidate list: a holder remembered from
-\* an earlier rule does not lower the shortage of a later rule - a phantom shortage that copies nothing.)
-Replicates(d) == \E k \in 1..Len(d.tasks) : Len(d.tasks[k].nodes) > 0
-Quiet(hs) == \A n \in hs : LET d == Decide27(n, hs, {}, {}) IN ~Replicates(d) /\ d.del = "none"
-NoTasks(hs) == \A n \in hs : ~Replicates(Decide27(n, hs, {}, {}))
--\* a check "replicates" when it hands the replicator a task with at least one candidate node. (With overlapping
-\* rules the code as found keeps calling the replicator with an EMPTY candidate list: a holder remembered from
-\* an earlier rule does not lower the shortage of a later rule - a phantom shortage that copies nothing.)
-Replicates(d) == \E k \in 1..Len(d.tasks) : Len(d.tasks[k].nodes) > 0
-Quiet(hs) == \A n \in hs : LET d == Decide27(n, hs, {}, {}) IN ~Replicates(d) /\ d.del = "none"
-NoTasks(hs) == \A n \in hs : ~Replicates(Decide27(n, hs, {}, {}))
--\* a check "replicates" when it hands the replicator a task with at least one candidate node. (With overlapping
-\* rules the code as found keeps calling the replicator with an EMPTY candidate list: a holder remembered from
-\* an earlier rule does not lower the shortage of a later rule - a phantom shortage that copies nothing.)
-Replicates(d) == \E k \in 1..Len(d.tasks) : Len(d.tasks[k].nodes) > 0
-Quiet(hs) == \A n \in hs : LET d == Decide27(n, hs, {}, {}) IN ~Replicates(d) /\ d.del = "none"
-NoTasks(hs) == \A n \in hs : ~Replicates(Decide27(n, hs, {}, {}))
--\* a check "replicates" when it hands the replicator a task with at least one candidate node. (With overlapping
-\* rules the code as found keeps calling the replicator with an EMPTY candidate list: a holder remembered from
-\* an earlier rule does not lower the shortage of a later rule - a phantom shortage that copies nothing.)
-Replicates(d) == \E k \in 1..Len(d.tasks) : Len(d.tasks[k].nodes) > 0
-Quiet(hs) == \A n \in hs : LET d == Decide27(n, hs, {}, {}) IN ~Replicates(d) /\ d.del = "none"
-NoTasks(hs) == \A n \in hs : ~Replicates(Decide27(n, hs, {}, {}))
--\* a check "replicates" when it hands the replicator a task with at least one candidate node. (With overlapping
-\* rules the code as found keeps calling the replicator with an EMPTY candidate list: a holder remembered from
-\* an earlier rule does not lower the shortage of a later rule - a phantom shortage that copies nothing.)
-Replicates(d) == \E k \in 1..Len(d.tasks) : Len(d.tasks[k].nodes) > 0
-Quiet(hs) == \A n \in hs : LET d == Decide27(n, hs, {}, {}) IN ~Replicates(d) /\ d.del = "none"
-NoTasks(hs) == \A n \in hs : ~Replicates(Decide27(n, hs, {}, {}))
--\* a check "replicates" when it hands the replicator a task with at least one candidate node. (With overlapping
-\* rules the code as found keeps calling the replicator with an EMPTY candidate list: a holder remembered from
-\* an earlier rule does not lower the shortage of a later rule - a phantom shortage that copies nothing.)
-Replicates(d) == \E k \in 1..Len(d.tasks) : Len(d.tasks[k].nodes) > 0
-Quiet(hs) == \A n \in hs : LET d == Decide27(n, hs, {}, {}) IN ~Replicates(d) /\ d.del = "none"
-NoTasks(hs) == \A n \in hs : ~Replicates(Decide27(n, hs, {}, {}))
--\* a check "replicates" when it hands the replicator a task with at least one candidate node. (With overlapping
-\* rules the code as found keeps calling the replicator with an EMPTY candidate list: a holder remembered from
-\* an earlier rule does not lower the shortage of a later rule - a phantom shortage that copies nothing.)
-Replicates(d) == \E k \in 1..Len(d.tasks) : Len(d.tasks[k].nodes) > 0
-Quiet(hs) == \A n \in hs : LET d == Decide27(n, hs, {}, {}) IN ~Replicates(d) /\ d.del = "none"
-NoTasks(hs) == \A n \in hs : ~Replicates(Decide27(n, hs, {}, {}))
--\* a check "replicates" when it hands the replicator a task with at least one candidate node. (With overlapping
-\* rules the code as found keeps calling the replicator with an EMPTY candidate list: a holder remembered from
-\* an earlier rule does not lower the shortage of a later rule - a phantom shortage that copies nothing.)
-Replicates(d) == \E k \in 1..Len(d.tasks) : Len(d.tasks[k].nodes) > 0
-Quiet(hs) == \A n \in hs : LET d == Decide27(n, hs, {}, {}) IN ~Replicates(d) /\ d.del = "none"
-NoTasks(hs) == \A n \in hs : ~Replicates(Decide27(n, hs, {}, {}))
--\* a check "replicates" when it hands the replicator a task with at least one candidate node. (With overlapping
-\* rules the code as found keeps calling the replicator with an EMPTY candidate list: a holder remembered from
-\* an earlier rule does not lower the shortage of a later rule - a phantom shortage that copies nothing.)
-Replicates(d) == \E k \in 1..Len(d.tasks) : Len(d.tasks[k].nodes) > 0
-Quiet(hs) == \A n \in hs : LET d == Decide27(n, hs, {}, {}) IN ~Replicates(d) /\ d.del = "none"
-NoTasks(hs) == \A n \in hs : ~Replicates(Decide27(n, hs, {}, {}))
--\* a check "replicates" when it hands the replicator a task with at least one candidate node. (With overlapping
-\* rules the code as found keeps calling the replicator with an EMPTY candidate list: a holder remembered from
-\* an earlier rule does not lower the shortage of a later rule - a phantom shortage that copies nothing.)
-Replicates(d) == \E k \in 1..Len(d.tasks) : Len(d.tasks[k].nodes) > 0
-Quiet(hs) == \A n \in hs : LET d == Decide27(n, hs, {}, {}) IN ~Replicates(d) /\ d.del = "none"
-NoTasks(hs) == \A n \in hs : ~Replicates(Decide27(n, hs, {}, {}))
--\* a check "replicates" when it hands the replicator a task with at least one candidate node. (With overlapping
-\* rules the code as found keeps calling the replicator with an EMPTY candidate list: a holder remembered from
-\* an earlier rule does not lower the shortage of a later rule - a phantom shortage that copies nothing.)
-Replicates(d) == \E k \in 1..Len(d.tasks) : Len(d.tasks[k].nodes) > 0
-Quiet(hs) == \A n \in hs : LET d == Decide27(n, hs, {}, {}) IN ~Replicates(d) /\ d.del = "none"
-NoTasks(hs) == \A n \in hs : ~Replicates(Decide27(n, hs, {}, {}))
--\* a check "replicates" when it hands the replicator a task with at least one candidate node. (With overlapping
-\* rules the code as found keeps calling the replicator with an EMPTY candidate list: a holder remembered from
-\* an earlier rule does not lower the shortage of a later rule - a phantom shortage that copies nothing.)
-Replicates(d) == \E k \in 1..Len(d.tasks) : Len(d.tasks[k].nodes) > 0
-Quiet(hs) == \A n \in hs : LET d == Decide27(n, hs, {}, {}) IN ~Replicates(d) /\ d.del = "none"
-NoTasks(hs) == \A n \in hs : ~Replicates(Decide27(n, hs, {}, {}))
--\* a check "replicates" when it hands the replicator a task with at least one candidate node. (With overlapping
-\* rules the code as found keeps calling the replicator with an EMPTY candidate list: a holder remembered from
-\* an earlier rule does not lower the shortage of a later rule - a phantom shortage that copies nothing.)
-Replicates(d) == \E k \in 1..Len(d.tasks) : Len(d.tasks[k].nodes) > 0
-Quiet(hs) == \A n \in hs : LET d == Decide27(n, hs, {}, {}) IN ~Replicates(d) /\ d.del = "none"
-NoTasks(hs) == \A n \in hs : ~Replicates(Decide27(n, hs, {}, {}))
--\* a check "replicates" when it hands the replicator a task with at least one candidate node. (With overlapping
-\* rules the code as found keeps calling the replicator with an EMPTY candidate list: a holder remembered from
-\* an earlier rule does not lower the shortage of a later rule - a phantom shortage that copies nothing.)
-Replicates(d) == \E k \in 1..Len(d.tasks) : Len(d.tasks[k].nodes) > 0
-Quiet(hs) == \A n \in hs : LET d == Decide27(n, hs, {}, {}) IN ~Replicates(d) /\ d.del = "none"
-NoTasks(hs) == \A n \in hs : ~Replicates(Decide27(n, hs, {}, {}))
--\* a check "replicates" when it hands the replicator a task with at least one candidate node. (With overlapping
-\* rules the code as found keeps calling the replicator with an EMPTY candidate list: a holder remembered from
-\* an earlier rule does not lower the shortage of a later rule - a phantom shortage that copies nothing.)
-Replicates(d) == \E k \in 1..Len(d.tasks) : Len(d.tasks[k].nodes) > 0
-Quiet(hs) == \A n \in hs : LET d == Decide27(n, hs, {}, {}) IN ~Replicates(d) /\ d.del = "none"
-NoTasks(hs) == \A n \in hs : ~Replicates(Decide27(n, hs, {}, {}))
--\* a check "replicates" when it hands the replicator a task with at least one candidate node. (With overlapping
-\* rules the code as found keeps calling the replicator with an EMPTY candidate list: a holder remembered from
-\* an earlier rule does not lower the shortage of a later rule - a phantom shortage that copies nothing.)
-Replicates(d) == \E k \in 1..Len(d.tasks) : Len(d.tasks[k].nodes) > 0
-Quiet(hs) == \A n \in hs : LET d == Decide27(n, hs, {}, {}) IN ~Replicates(d) /\ d.del = "none"
-NoTasks(hs) == \A n \in hs : ~Replicates(Decide27(n, hs, {}, {}))
--\* a check "replicates" when it hands the replicator a task with at least one candidate node. (With overlapping
-\* rules the code as found keeps calling the replicator with an EMPTY candidate list: a holder remembered from
-\* an earlier rule does not lower the shortage of a later rule - a phantom shortage that copies nothing.)
-Replicates(d) == \E k \in 1..Len(d.tasks) : Len(d.tasks[k].nodes) > 0
-Quiet(hs) == \A n \in hs : LET d == Decide27(n, hs, {}, {}) IN ~Replicates(d) /\ d.del = "none"
-NoTasks(hs) == \A n \in hs : ~Replicates(Decide27(n, hs, {}, {}))
--\* a check "replicates" when it hands the replicator a task with at least one candidate node. (With overlapping
-\* rules the code as found keeps calling the replicator with an EMPTY candidate list: a holder remembered from
-\* an earlier rule does not lower the shortage of a later rule - a phantom shortage that copies nothing.)
-Replicates(d) == \E k \in 1..Len(d.tasks) : Len(d.tasks[k].nodes) > 0
-Quiet(hs) == \A n \in hs : LET d == Decide27(n, hs, {}, {}) IN ~Replicates(d) /\ d.del = "none"
-NoTasks(hs) == \A n \in hs : ~Replicates(Decide27(n, hs, {}, {}))
--\* a check "replicates" when it hands the replicator a task with at least one candidate node. (With overlapping
-\* rules the code as found keeps calling the replicator with an EMPTY candidate list: a holder remembered from
-\* an earlier rule does not lower the shortage of a later rule - a phantom shortage that copies nothing.)
-Replicates(d) == \E k \in 1..Len(d.tasks) : Len(d.tasks[k].nodes) > 0
-Quiet(hs) == \A n \in hs : LET d == Decide27(n, hs, {}, {}) IN ~Replicates(d) /\ d.del = "none"
-NoTasks(hs) == \A n \in hs : ~Replicates(Decide27(n, hs, {}, {}))
--\* a check "replicates" when it hands the replicator a task with at least one candidate node. (With overlapping
-\* rules the code as found keeps calling the replicator with an EMPTY candidate list: a holder remembered from
-\* an earlier rule does not lower the shortage of a later rule - a phantom shortage that copies nothing.)
-Replicates(d) == \E k \in 1..Len(d.tasks) : Len(d.tasks[k].nodes) > 0
-Quiet(hs) == \A n \in hs : LET d == Decide27(n, hs, {}, {}) IN ~Replicates(d) /\ d.del = "none"
-NoTasks(hs) == \A n \in hs : ~Replicates(Decide27(n, hs, {}, {}))
--\* a check "replicates" when it hands the replicator a task with at least one candidate node. (With overlapping
-\* rules the code as found keeps calling the replicator with an EMPTY candidate list: a holder remembered from
-\* an earlier rule does not lower the shortage of a later rule - a phantom shortage that copies nothing.)
-Replicates(d) == \E k \in 1..Len(d.tasks) : Len(d.tasks[k].nodes) > 0
-Quiet(hs) == \A n \in hs : LET d == Decide27(n, hs, {}, {}) IN ~Replicates(d) /\ d.del = "none"
-NoTasks(hs) == \A n \in hs : ~Replicates(Decide27(n, hs, {}, {}))
--\* a check "replicates" when it hands the replicator a task with at least one candidate node. (With overlapping
-\* rules the code as found keeps calling the replicator with an EMPTY candidate list: a holder remembered from
-\* an earlier rule does not lower the shortage of a later rule - a phantom shortage that copies nothing.)
-Replicates(d) == \E k \in 1..Len(d.tasks) : Len(d.tasks[k].nodes) > 0
-Quiet(hs) == \A n \in hs : LET d == Decide27(n, hs, {}, {}) IN ~Replicates(d) /\ d.del = "none"
-NoTasks(hs) == \A n \in hs : ~Replicates(Decide27(n, hs, {}, {}))
--\* a check "replicates" when it hands the replicator a task with at least one candidate node. (With overlapping
-\* rules the code as found keeps calling the replicator with an EMPTY candidate list: a holder remembered from
-\* an earlier rule does not lower the shortage of a later rule - a phantom shortage that copies nothing.)
-Replicates(d) == \E k \in 1..Len(d.tasks) : Len(d.tasks[k].nodes) > 0
-Quiet(hs) == \A n \in hs : LET d == Decide27(n, hs, {}, {}) IN ~Replicates(d) /\ d.del = "none"
-NoTasks(hs) == \A n \in hs : ~Replicates(Decide27(n, hs, {}, {}))
--\* a check "replicates" when it hands the replicator a task with at least one candidate node. (With overlapping
-\* rules the code as found keeps calling the replicator with an EMPTY candidate list: a holder remembered from
-\* an earlier rule does not lower the shortage of a later rule - a phantom shortage that copies nothing.)
-Replicates(d) == \E k \in 1..Len(d.tasks) : Len(d.tasks[k].nodes) > 0
-Quiet(hs) == \A n \in hs : LET d == Decide27(n, hs, {}, {}) IN ~Replicates(d) /\ d.del = "none"
-NoTasks(hs) == \A n \in hs : ~Replicates(Decide27(n, hs, {}, {}))
--\* a check "replicates" when it hands the replicator a task with at least one candidate node. (With overlapping
-\* rules the code as found keeps calling the replicator with an EMPTY candidate list: a holder remembered from
-\* an earlier rule does not lower the shortage of a later rule - a phantom shortage that copies nothing.)
-Replicates(d) == \E k \in 1..Len(d.tasks) : Len(d.tasks[k].nodes) > 0
-Quiet(hs) == \A n \in hs : LET d == Decide27(n, hs, {}, {}) IN ~Replicates(d) /\ d.del = "none"
-NoTasks(hs) == \A n \in hs : ~Replicates(Decide27(n, hs, {}, {}))
--\* a check "replicates" when it hands the replicator a task with at least one candidate node. (With overlapping
-\* rules the code as found keeps calling the replicator with an EMPTY candidate list: a holder remembered from
-\* an earlier rule does not lower the shortage of a later rule - a phantom shortage that copies nothing.)
-Replicates(d) == \E k \in 1..Len(d.tasks) : Len(d.tasks[k].nodes) > 0
-Quiet(hs) == \A n \in hs : LET d == Decide27(n, hs, {}, {}) IN ~Replicates(d) /\ d.del = "none"
-NoTasks(hs) == \A n \in hs : ~Replicates(Decide27(n, hs, {}, {}))
--\* a check "replicates" when it hands the replicator a task with at least one candidate node. (With overlapping
-\* rules the code as found keeps calling the replicator with an EMPTY candidate list: a holder remembered from
-\* an earlier rule does not lower the shortage of a later rule - a phantom shortage that copies nothing.)
-Replicates(d) == \E k \in 1..Len(d.tasks) : Len(d.tasks[k].nodes) > 0
-Quiet(hs) == \A n \in hs : LET d == Decide27(n, hs, {}, {}) IN ~Replicates(d) /\ d.del = "none"
-NoTasks(hs) == \A n \in hs : ~Replicates(Decide27(n, hs, {}, {}))
-
-\* a check "replicates" when it hands the replicator a task with at least one candidate node. (With overlapping
-\* rules the code as found keeps calling the replicator with an EMPTY candidate list: a holder remembered from
-\* an earlier rule does not lower the shortage of a later rule - a phantom shortage that copies nothing.)
-Replicates(d) == \E k \in 1..Len(d.tasks) : Len(d.tasks[k].nodes) > 0
-Quiet(hs) == \A n \in hs : LET d == Decide27(n, hs, {}, {}) IN ~Replicates(d) /\ d.del = "none"
-NoTasks(hs) == \A n \in hs : ~Replicates(Decide27(n, hs, {}, {}))
-(\* a check "replicates" when it hands the replicator a task with at least one candidate node. (With overlapping
-\* rules the code as found keeps calling the replicator with an EMPTY candidate list: a holder remembered from
-\* an earlier rule does not lower the shortage of a later rule - a phantom shortage that copies nothing.)
-Replicates(d) == \E k \in 1..Len(d.tasks) : Len(d.tasks[k].nodes) > 0
-Quiet(hs) == \A n \in hs : LET d == Decide27(n, hs, {}, {}) IN ~Replicates(d) /\ d.del = "none"
-NoTasks(hs) == \A n \in hs : ~Replicates(Decide27(n, hs, {}, {}))
-*\* a check "replicates" when it hands the replicator a task with at least one candidate node. (With overlapping
-\* rules the code as found keeps calling the replicator with an EMPTY candidate list: a holder remembered from
-\* an earlier rule does not lower the shortage of a later rule - a phantom shortage that copies nothing.)
-Replicates(d) == \E k \in 1..Len(d.tasks) : Len(d.tasks[k].nodes) > 0
-Quiet(hs) == \A n \in hs : LET d == Decide27(n, hs, {}, {}) IN ~Replicates(d) /\ d.del = "none"
-NoTasks(hs) == \A n \in hs : ~Replicates(Decide27(n, hs, {}, {}))
- \* a check "replicates" when it hands the replicator a task with at least one candidate node. (With overlapping
-\* rules the code as found keeps calling the replicator with an EMPTY candidate list: a holder remembered from
-\* an earlier rule does not lower the shortage of a later rule - a phantom shortage that copies nothing.)
-Replicates(d) == \E k \in 1..Len(d.tasks) : Len(d.tasks[k].nodes) > 0
-Quiet(hs) == \A n \in hs : LET d == Decide27(n, hs, {}, {}) IN ~Replicates(d) /\ d.del = "none"
-NoTasks(hs) == \A n \in hs : ~Replicates(Decide27(n, hs, {}, {}))
-C\* a check "replicates" when it hands the replicator a task with at least one candidate node. (With overlapping
-\* rules the code as found keeps calling the replicator with an EMPTY candidate list: a holder remembered from
-\* an earlier rule does not lower the shortage of a later rule - a phantom shortage that copies nothing.)
-Replicates(d) == \E k \in 1..Len(d.tasks) : Len(d.tasks[k].nodes) > 0
-Quiet(hs) == \A n \in hs : LET d == Decide27(n, hs, {}, {}) IN ~Replicates(d) /\ d.del = "none"
-NoTasks(hs) == \A n \in hs : ~Replicates(Decide27(n, hs, {}, {}))
-2\* a check "replicates" when it hands the replicator a task with at least one candidate node. (With overlapping
-\* rules the code as found keeps calling the replicator with an EMPTY candidate list: a holder remembered from
-\* an earlier rule does not lower the shortage of a later rule - a phantom shortage that copies nothing.)
-Replicates(d) == \E k \in 1..Len(d.tasks) : Len(d.tasks[k].nodes) > 0
-Quiet(hs) == \A n \in hs : LET d == Decide27(n, hs, {}, {}) IN ~Replicates(d) /\ d.del = "none"
-NoTasks(hs) == \A n \in hs : ~Replicates(Decide27(n, hs, {}, {}))
-7\* a check "replicates" when it hands the replicator a task with at least one candidate node. (With overlapping
-\* rules the code as found keeps calling the replicator with an EMPTY candidate list: a holder remembered from
-\* an earlier rule does not lower the shortage of a later rule - a phantom shortage that copies nothing.)
-Replicates(d) == \E k \in 1..Len(d.tasks) : Len(d.tasks[k].nodes) > 0
-Quiet(hs) == \A n \in hs : LET d == Decide27(n, hs, {}, {}) IN ~Replicates(d) /\ d.del = "none"
-NoTasks(hs) == \A n \in hs : ~Replicates(Decide27(n, hs, {}, {}))
- \* a check "replicates" when it hands the replicator a task with at least one candidate node. (With overlapping
-\* rules the code as found keeps calling the replicator with an EMPTY candidate list: a holder remembered from
-\* an earlier rule does not lower the shortage of a later rule - a phantom shortage that copies nothing.)
-Replicates(d) == \E k \in 1..Len(d.tasks) : Len(d.tasks[k].nodes) > 0
-Quiet(hs) == \A n \in hs : LET d == Decide27(n, hs, {}, {}) IN ~Replicates(d) /\ d.del = "none"
-NoTasks(hs) == \A n \in hs : ~Replicates(Decide27(n, hs, {}, {}))
--\* a check "replicates" when it hands the replicator a task with at least one candidate node. (With overlapping
-\* rules the code as found keeps calling the replicator with an EMPTY candidate list: a holder remembered from
-\* an earlier rule does not lower the shortage of a later rule - a phantom shortage that copies nothing.)
-Replicates(d) == \E k \in 1..Len(d.tasks) : Len(d.tasks[k].nodes) > 0
-Quiet(hs) == \A n \in hs : LET d == Decide27(n, hs, {}, {}) IN ~Replicates(d) /\ d.del = "none"
-NoTasks(hs) == \A n \in hs : ~Replicates(Decide27(n, hs, {}, {}))
- \* a check "replicates" when it hands the replicator a task with at least one candidate node. (With overlapping
-\* rules the code as found keeps calling the replicator with an EMPTY candidate list: a holder remembered from
-\* an earlier rule does not lower the shortage of a later rule - a phantom shortage that copies nothing.)
-Replicates(d) == \E k \in 1..Len(d.tasks) : Len(d.tasks[k].nodes) > 0
-Quiet(hs) == \A n \in hs : LET d == Decide27(n, hs, {}, {}) IN ~Replicates(d) /\ d.del = "none"
-NoTasks(hs) == \A n \in hs : ~Replicates(Decide27(n, hs, {}, {}))
-r\* a check "replicates" when it hands the replicator a task with at least one candidate node. (With overlapping
-\* rules the code as found keeps calling the replicator with an EMPTY candidate list: a holder remembered from
-\* an earlier rule does not lower the shortage of a later rule - a phantom shortage that copies nothing.)
-Replicates(d) == \E k \in 1..Len(d.tasks) : Len(d.tasks[k].nodes) > 0
-Quiet(hs) == \A n \in hs : LET d == Decide27(n, hs, {}, {}) IN ~Replicates(d) /\ d.del = "none"
-NoTasks(hs) == \A n \in hs : ~Replicates(Decide27(n, hs, {}, {}))
-e\* a check "replicates" when it hands the replicator a task with at least one candidate node. (With overlapping
-\* rules the code as found keeps calling the replicator with an EMPTY candidate list: a holder remembered from
-\* an earlier rule does not lower the shortage of a later rule - a phantom shortage that copies nothing.)
-Replicates(d) == \E k \in 1..Len(d.tasks) : Len(d.tasks[k].nodes) > 0
-Quiet(hs) == \A n \in hs : LET d == Decide27(n, hs, {}, {}) IN ~Replicates(d) /\ d.del = "none"
-NoTasks(hs) == \A n \in hs : ~Replicates(Decide27(n, hs, {}, {}))
-p\* a check "replicates" when it hands the replicator a task with at least one candidate node. (With overlapping
-\* rules the code as found keeps calling the replicator with an EMPTY candidate list: a holder remembered from
-\* an earlier rule does not lower the shortage of a later rule - a phantom shortage that copies nothing.)
-Replicates(d) == \E k \in 1..Len(d.tasks) : Len(d.tasks[k].nodes) > 0
-Quiet(hs) == \A n \in hs : LET d == Decide27(n, hs, {}, {}) IN ~Replicates(d) /\ d.del = "none"
-NoTasks(hs) == \A n \in hs : ~Replicates(Decide27(n, hs, {}, {}))
-e\* a check "replicates" when it hands the replicator a task with at least one candidate node. (With overlapping
-\* rules the code as found keeps calling the replicator with an EMPTY candidate list: a holder remembered from
-\* an earlier rule does not lower the shortage of a later rule - a phantom shortage that copies nothing.)
-Replicates(d) == \E k \in 1..Len(d.tasks) : Len(d.tasks[k].nodes) > 0
-Quiet(hs) == \A n \in hs : LET d == Decide27(n, hs, {}, {}) IN ~Replicates(d) /\ d.del = "none"
-NoTasks(hs) == \A n \in hs : ~Replicates(Decide27(n, hs, {}, {}))
-a\* a check "replicates" when it hands the replicator a task with at least one candidate node. (With overlapping
-\* rules the code as found keeps calling the replicator with an EMPTY candidate list: a holder remembered from
-\* an earlier rule does not lower the shortage of a later rule - a phantom shortage that copies nothing.)
-Replicates(d) == \E k \in 1..Len(d.tasks) : Len(d.tasks[k].nodes) > 0
-Quiet(hs) == \A n \in hs : LET d == Decide27(n, hs, {}, {}) IN ~Replicates(d) /\ d.del = "none"
-NoTasks(hs) == \A n \in hs : ~Replicates(Decide27(n, hs, {}, {}))
-t\* a check "replicates" when it hands the replicator a task with at least one candidate node. (With overlapping
-\* rules the code as found keeps calling the replicator with an EMPTY candidate list: a holder remembered from
-\* an earlier rule does not lower the shortage of a later rule - a phantom shortage that copies nothing.)
-Replicates(d) == \E k \in 1..Len(d.tasks) : Len(d.tasks[k].nodes) > 0
-Quiet(hs) == \A n \in hs : LET d == Decide27(n, hs, {}, {}) IN ~Replicates(d) /\ d.del = "none"
-NoTasks(hs) == \A n \in hs : ~Replicates(Decide27(n, hs, {}, {}))
-e\* a check "replicates" when it hands the replicator a task with at least one candidate node. (With overlapping
-\* rules the code as found keeps calling the replicator with an EMPTY candidate list: a holder remembered from
-\* an earlier rule does not lower the shortage of a later rule - a phantom shortage that copies nothing.)
-Replicates(d) == \E k \in 1..Len(d.tasks) : Len(d.tasks[k].nodes) > 0
-Quiet(hs) == \A n \in hs : LET d == Decide27(n, hs, {}, {}) IN ~Replicates(d) /\ d.del = "none"
-NoTasks(hs) == \A n \in hs : ~Replicates(Decide27(n, hs, {}, {}))
-d\* a check "replicates" when it hands the replicator a task with at least one candidate node. (With overlapping
-\* rules the code as found keeps calling the replicator with an EMPTY candidate list: a holder remembered from
-\* an earlier rule does not lower the shortage of a later rule - a phantom shortage that copies nothing.)
-Replicates(d) == \E k \in 1..Len(d.tasks) : Len(d.tasks[k].nodes) > 0
-Quiet(hs) == \A n \in hs : LET d == Decide27(n, hs, {}, {}) IN ~Replicates(d) /\ d.del = "none"
-NoTasks(hs) == \A n \in hs : ~Replicates(Decide27(n, hs, {}, {}))
- \* a check "replicates" when it hands the replicator a task with at least one candidate node. (With overlapping
-\* rules the code as found keeps calling the replicator with an EMPTY candidate list: a holder remembered from
-\* an earlier rule does not lower the shortage of a later rule - a phantom shortage that copies nothing.)
-Replicates(d) == \E k \in 1..Len(d.tasks) : Len(d.tasks[k].nodes) > 0
-Quiet(hs) == \A n \in hs : LET d == Decide27(n, hs, {}, {}) IN ~Replicates(d) /\ d.del = "none"
-NoTasks(hs) == \A n \in hs : ~Replicates(Decide27(n, hs, {}, {}))
-p\* a check "replicates" when it hands the replicator a task with at least one candidate node. (With overlapping
-\* rules the code as found keeps calling the replicator with an EMPTY candidate list: a holder remembered from
-\* an earlier rule does not lower the shortage of a later rule - a phantom shortage that copies nothing.)
-Replicates(d) == \E k \in 1..Len(d.tasks) : Len(d.tasks[k].nodes) > 0
-Quiet(hs) == \A n \in hs : LET d == Decide27(n, hs, {}, {}) IN ~Replicates(d) /\ d.del = "none"
-NoTasks(hs) == \A n \in hs : ~Replicates(Decide27(n, hs, {}, {}))
-o\* a check "replicates" when it hands the replicator a task with at least one candidate node. (With overlapping
-\* rules the code as found keeps calling the replicator with an EMPTY candidate list: a holder remembered from
-\* an earlier rule does not lower the shortage of a later rule - a phantom shortage that copies nothing.)
-Replicates(d) == \E k \in 1..Len(d.tasks) : Len(d.tasks[k].nodes) > 0
-Quiet(hs) == \A n \in hs : LET d == Decide27(n, hs, {}, {}) IN ~Replicates(d) /\ d.del = "none"
-NoTasks(hs) == \A n \in hs : ~Replicates(Decide27(n, hs, {}, {}))
-l\* a check "replicates" when it hands the replicator a task with at least one candidate node. (With overlapping
-\* rules the code as found keeps calling the replicator with an EMPTY candidate list: a holder remembered from
-\* an earlier rule does not lower the shortage of a later rule - a phantom shortage that copies nothing.)
-Replicates(d) == \E k \in 1..Len(d.tasks) : Len(d.tasks[k].nodes) > 0
-Quiet(hs) == \A n \in hs : LET d == Decide27(n, hs, {}, {}) IN ~Replicates(d) /\ d.del = "none"
-NoTasks(hs) == \A n \in hs : ~Replicates(Decide27(n, hs, {}, {}))
-i\* a check "replicates" when it hands the replicator a task with at least one candidate node. (With overlapping
-\* rules the code as found keeps calling the replicator with an EMPTY candidate list: a holder remembered from
-\* an earlier rule does not lower the shortage of a later rule - a phantom shortage that copies nothing.)
-Replicates(d) == \E k \in 1..Len(d.tasks) : Len(d.tasks[k].nodes) > 0
-Quiet(hs) == \A n \in hs : LET d == Decide27(n, hs, {}, {}) IN ~Replicates(d) /\ d.del = "none"
-NoTasks(hs) == \A n \in hs : ~Replicates(Decide27(n, hs, {}, {}))
-c\* a check "replicates" when it hands the replicator a task with at least one candidate node. (With overlapping
-\* rules the code as found keeps calling the replicator with an EMPTY candidate list: a holder remembered from
-\* an earlier rule does not lower the shortage of a later rule - a phantom shortage that copies nothing.)
-Replicates(d) == \E k \in 1..Len(d.tasks) : Len(d.tasks[k].nodes) > 0
-Quiet(hs) == \A n \in hs : LET d == Decide27(n, hs, {}, {}) IN ~Replicates(d) /\ d.del = "none"
-NoTasks(hs) == \A n \in hs : ~Replicates(Decide27(n, hs, {}, {}))
-e\* a check "replicates" when it hands the replicator a task with at least one candidate node. (With overlapping
-\* rules the code as found keeps calling the replicator with an EMPTY candidate list: a holder remembered from
-\* an earlier rule does not lower the shortage of a later rule - a phantom shortage that copies nothing.)
-Replicates(d) == \E k \in 1..Len(d.tasks) : Len(d.tasks[k].nodes) > 0
-Quiet(hs) == \A n \in hs : LET d == Decide27(n, hs, {}, {}) IN ~Replicates(d) /\ d.del = "none"
-NoTasks(hs) == \A n \in hs : ~Replicates(Decide27(n, hs, {}, {}))
-r\* a check "replicates" when it hands the replicator a task with at least one candidate node. (With overlapping
-\* rules the code as found keeps calling the replicator with an EMPTY candidate list: a holder remembered from
-\* an earlier rule does not lower the shortage of a later rule - a phantom shortage that copies nothing.)
-Replicates(d) == \E k \in 1..Len(d.tasks) : Len(d.tasks[k].nodes) > 0
-Quiet(hs) == \A n \in hs : LET d == Decide27(n, hs, {}, {}) IN ~Replicates(d) /\ d.del = "none"
-NoTasks(hs) == \A n \in hs : ~Replicates(Decide27(n, hs, {}, {}))
- \* a check "replicates" when it hands the replicator a task with at least one candidate node. (With overlapping
-\* rules the code as found keeps calling the replicator with an EMPTY candidate list: a holder remembered from
-\* an earlier rule does not lower the shortage of a later rule - a phantom shortage that copies nothing.)
-Replicates(d) == \E k \in 1..Len(d.tasks) : Len(d.tasks[k].nodes) > 0
-Quiet(hs) == \A n \in hs : LET d == Decide27(n, hs, {}, {}) IN ~Replicates(d) /\ d.del = "none"
-NoTasks(hs) == \A n \in hs : ~Replicates(Decide27(n, hs, {}, {}))
-c\* a check "replicates" when it hands the replicator a task with at least one candidate node. (With overlapping
-\* rules the code as found keeps calling the replicator with an EMPTY candidate list: a holder remembered from
-\* an earlier rule does not lower the shortage of a later rule - a phantom shortage that copies nothing.)
-Replicates(d) == \E k \in 1..Len(d.tasks) : Len(d.tasks[k].nodes) > 0
-Quiet(hs) == \A n \in hs : LET d == Decide27(n, hs, {}, {}) IN ~Replicates(d) /\ d.del = "none"
-NoTasks(hs) == \A n \in hs : ~Replicates(Decide27(n, hs, {}, {}))
-y\* a check "replicates" when it hands the replicator a task with at least one candidate node. (With overlapping
-\* rules the code as found keeps calling the replicator with an EMPTY candidate list: a holder remembered from
-\* an earlier rule does not lower the shortage of a later rule - a phantom shortage that copies nothing.)
-Replicates(d) == \E k \in 1..Len(d.tasks) : Len(d.tasks[k].nodes) > 0
-Quiet(hs) == \A n \in hs : LET d == Decide27(n, hs, {}, {}) IN ~Replicates(d) /\ d.del = "none"
-NoTasks(hs) == \A n \in hs : ~Replicates(Decide27(n, hs, {}, {}))
-c\* a check "replicates" when it hands the replicator a task with at least one candidate node. (With overlapping
-\* rules the code as found keeps calling the replicator with an EMPTY candidate list: a holder remembered from
-\* an earlier rule does not lower the shortage of a later rule - a phantom shortage that copies nothing.)
-Replicates(d) == \E k \in 1..Len(d.tasks) : Len(d.tasks[k].nodes) > 0
-Quiet(hs) == \A n \in hs : LET d == Decide27(n, hs, {}, {}) IN ~Replicates(d) /\ d.del = "none"
-NoTasks(hs) == \A n \in hs : ~Replicates(Decide27(n, hs, {}, {}))
-l\* a check "replicates" when it hands the replicator a task with at least one candidate node. (With overlapping
-\* rules the code as found keeps calling the replicator with an EMPTY candidate list: a holder remembered from
-\* an earlier rule does not lower the shortage of a later rule - a phantom shortage that copies nothing.)
-Replicates(d) == \E k \in 1..Len(d.tasks) : Len(d.tasks[k].nodes) > 0
-Quiet(hs) == \A n \in hs : LET d == Decide27(n, hs, {}, {}) IN ~Replicates(d) /\ d.del = "none"
-NoTasks(hs) == \A n \in hs : ~Replicates(Decide27(n, hs, {}, {}))
-e\* a check "replicates" when it hands the replicator a task with at least one candidate node. (With overlapping
-\* rules the code as found keeps calling the replicator with an EMPTY candidate list: a holder remembered from
-\* an earlier rule does not lower the shortage of a later rule - a phantom shortage that copies nothing.)
-Replicates(d) == \E k \in 1..Len(d.tasks) : Len(d.tasks[k].nodes) > 0
-Quiet(hs) == \A n \in hs : LET d == Decide27(n, hs, {}, {}) IN ~Replicates(d) /\ d.del = "none"
-NoTasks(hs) == \A n \in hs : ~Replicates(Decide27(n, hs, {}, {}))
-s\* a check "replicates" when it hands the replicator a task with at least one candidate node. (With overlapping
-\* rules the code as found keeps calling the replicator with an EMPTY candidate list: a holder remembered from
-\* an earlier rule does not lower the shortage of a later rule - a phantom shortage that copies nothing.)
-Replicates(d) == \E k \in 1..Len(d.tasks) : Len(d.tasks[k].nodes) > 0
-Quiet(hs) == \A n \in hs : LET d == Decide27(n, hs, {}, {}) IN ~Replicates(d) /\ d.del = "none"
-NoTasks(hs) == \A n \in hs : ~Replicates(Decide27(n, hs, {}, {}))
- \* a check "replicates" when it hands the replicator a task with at least one candidate node. (With overlapping
-\* rules the code as found keeps calling the replicator with an EMPTY candidate list: a holder remembered from
-\* an earlier rule does not lower the shortage of a later rule - a phantom shortage that copies nothing.)
-Replicates(d) == \E k \in 1..Len(d.tasks) : Len(d.tasks[k].nodes) > 0
-Quiet(hs) == \A n \in hs : LET d == Decide27(n, hs, {}, {}) IN ~Replicates(d) /\ d.del = "none"
-NoTasks(hs) == \A n \in hs : ~Replicates(Decide27(n, hs, {}, {}))
-r\* a check "replicates" when it hands the replicator a task with at least one candidate node. (With overlapping
-\* rules the code as found keeps calling the replicator with an EMPTY candidate list: a holder remembered from
-\* an earlier rule does not lower the shortage of a later rule - a phantom shortage that copies nothing.)
-Replicates(d) == \E k \in 1..Len(d.tasks) : Len(d.tasks[k].nodes) > 0
-Quiet(hs) == \A n \in hs : LET d == Decide27(n, hs, {}, {}) IN ~Replicates(d) /\ d.del = "none"
-NoTasks(hs) == \A n \in hs : ~Replicates(Decide27(n, hs, {}, {}))
-e\* a check "replicates" when it hands the replicator a task with at least one candidate node. (With overlapping
-\* rules the code as found keeps calling the replicator with an EMPTY candidate list: a holder remembered from
-\* an earlier rule does not lower the shortage of a later rule - a phantom shortage that copies nothing.)
-Replicates(d) == \E k \in 1..Len(d.tasks) : Len(d.tasks[k].nodes) > 0
-Quiet(hs) == \A n \in hs : LET d == Decide27(n, hs, {}, {}) IN ~Replicates(d) /\ d.del = "none"
-NoTasks(hs) == \A n \in hs : ~Replicates(Decide27(n, hs, {}, {}))
-s\* a check "replicates" when it hands the replicator a task with at least one candidate node. (With overlapping
-\* rules the code as found keeps calling the replicator with an EMPTY candidate list: a holder remembered from
-\* an earlier rule does not lower the shortage of a later rule - a phantom shortage that copies nothing.)
-Replicates(d) == \E k \in 1..Len(d.tasks) : Len(d.tasks[k].nodes) > 0
-Quiet(hs) == \A n \in hs : LET d == Decide27(n, hs, {}, {}) IN ~Replicates(d) /\ d.del = "none"
-NoTasks(hs) == \A n \in hs : ~Replicates(Decide27(n, hs, {}, {}))
-t\* a check "replicates" when it hands the replicator a task with at least one candidate node. (With overlapping
-\* rules the code as found keeps calling the replicator with an EMPTY candidate list: a holder remembered from
-\* an earlier rule does not lower the shortage of a later rule - a phantom shortage that copies nothing.)
-Replicates(d) == \E k \in 1..Len(d.tasks) : Len(d.tasks[k].nodes) > 0
-Quiet(hs) == \A n \in hs : LET d == Decide27(n, hs, {}, {}) IN ~Replicates(d) /\ d.del = "none"
-NoTasks(hs) == \A n \in hs : ~Replicates(Decide27(n, hs, {}, {}))
-o\* a check "replicates" when it hands the replicator a task with at least one candidate node. (With overlapping
-\* rules the code as found keeps calling the replicator with an EMPTY candidate list: a holder remembered from
-\* an earlier rule does not lower the shortage of a later rule - a phantom shortage that copies nothing.)
-Replicates(d) == \E k \in 1..Len(d.tasks) : Len(d.tasks[k].nodes) > 0
-Quiet(hs) == \A n \in hs : LET d == Decide27(n, hs, {}, {}) IN ~Replicates(d) /\ d.del = "none"
-NoTasks(hs) == \A n \in hs : ~Replicates(Decide27(n, hs, {}, {}))
-r\* a check "replicates" when it hands the replicator a task with at least one candidate node. (With overlapping
-\* rules the code as found keeps calling the replicator with an EMPTY candidate list: a holder remembered from
-\* an earlier rule does not lower the shortage of a later rule - a phantom shortage that copies nothing.)
-Replicates(d) == \E k \in 1..Len(d.tasks) : Len(d.tasks[k].nodes) > 0
-Quiet(hs) == \A n \in hs : LET d == Decide27(n, hs, {}, {}) IN ~Replicates(d) /\ d.del = "none"
-NoTasks(hs) == \A n \in hs : ~Replicates(Decide27(n, hs, {}, {}))
-e\* a check "replicates" when it hands the replicator a task with at least one candidate node. (With overlapping
-\* rules the code as found keeps calling the replicator with an EMPTY candidate list: a holder remembered from
-\* an earlier rule does not lower the shortage of a later rule - a phantom shortage that copies nothing.)
-Replicates(d) == \E k \in 1..Len(d.tasks) : Len(d.tasks[k].nodes) > 0
-Quiet(hs) == \A n \in hs : LET d == Decide27(n, hs, {}, {}) IN ~Replicates(d) /\ d.del = "none"
-NoTasks(hs) == \A n \in hs : ~Replicates(Decide27(n, hs, {}, {}))
- \* a check "replicates" when it hands the replicator a task with at least one candidate node. (With overlapping
-\* rules the code as found keeps calling the replicator with an EMPTY candidate list: a holder remembered from
-\* an earlier rule does not lower the shortage of a later rule - a phantom shortage that copies nothing.)
-Replicates(d) == \E k \in 1..Len(d.tasks) : Len(d.tasks[k].nodes) > 0
-Quiet(hs) == \A n \in hs : LET d == Decide27(n, hs, {}, {}) IN ~Replicates(d) /\ d.del = "none"
-NoTasks(hs) == \A n \in hs : ~Replicates(Decide27(n, hs, {}, {}))
-t\* a check "replicates" when it hands the replicator a task with at least one candidate node. (With overlapping
-\* rules the code as found keeps calling the replicator with an EMPTY candidate list: a holder remembered from
-\* an earlier rule does not lower the shortage of a later rule - a phantom shortage that copies nothing.)
-Replicates(d) == \E k \in 1..Len(d.tasks) : Len(d.tasks[k].nodes) > 0
-Quiet(hs) == \A n \in hs : LET d == Decide27(n, hs, {}, {}) IN ~Replicates(d) /\ d.del = "none"
-NoTasks(hs) == \A n \in hs : ~Replicates(Decide27(n, hs, {}, {}))
-h\* a check "replicates" when it hands the replicator a task with at least one candidate node. (With overlapping
-\* rules the code as found keeps calling the replicator with an EMPTY candidate list: a holder remembered from
-\* an earlier rule does not lower the shortage of a later rule - a phantom shortage that copies nothing.)
-Replicates(d) == \E k \in 1..Len(d.tasks) : Len(d.tasks[k].nodes) > 0
-Quiet(hs) == \A n \in hs : LET d == Decide27(n, hs, {}, {}) IN ~Replicates(d) /\ d.del = "none"
-NoTasks(hs) == \A n \in hs : ~Replicates(Decide27(n, hs, {}, {}))
-e\* a check "replicates" when it hands the replicator a task with at least one candidate node. (With overlapping
-\* rules the code as found keeps calling the replicator with an EMPTY candidate list: a holder remembered from
-\* an earlier rule does not lower the shortage of a later rule - a phantom shortage that copies nothing.)
-Replicates(d) == \E k \in 1..Len(d.tasks) : Len(d.tasks[k].nodes) > 0
-Quiet(hs) == \A n \in hs : LET d == Decide27(n, hs, {}, {}) IN ~Replicates(d) /\ d.del = "none"
-NoTasks(hs) == \A n \in hs : ~Replicates(Decide27(n, hs, {}, {}))
- \* a check "replicates" when it hands the replicator a task with at least one candidate node. (With overlapping
-\* rules the code as found keeps calling the replicator with an EMPTY candidate list: a holder remembered from
-\* an earlier rule does not lower the shortage of a later rule - a phantom shortage that copies nothing.)
-Replicates(d) == \E k \in 1..Len(d.tasks) : Len(d.tasks[k].nodes) > 0
-Quiet(hs) == \A n \in hs : LET d == Decide27(n, hs, {}, {}) IN ~Replicates(d) /\ d.del = "none"
-NoTasks(hs) == \A n \in hs : ~Replicates(Decide27(n, hs, {}, {}))
-r\* a check "replicates" when it hands the replicator a task with at least one candidate node. (With overlapping
-\* rules the code as found keeps calling the replicator with an EMPTY candidate list: a holder remembered from
-\* an earlier rule does not lower the shortage of a later rule - a phantom shortage that copies nothing.)
-Replicates(d) == \E k \in 1..Len(d.tasks) : Len(d.tasks[k].nodes) > 0
-Quiet(hs) == \A n \in hs : LET d == Decide27(n, hs, {}, {}) IN ~Replicates(d) /\ d.del = "none"
-NoTasks(hs) == \A n \in hs : ~Replicates(Decide27(n, hs, {}, {}))
-e\* a check "replicates" when it hands the replicator a task with at least one candidate node. (With overlapping
-\* rules the code as found keeps calling the replicator with an EMPTY candidate list: a holder remembered from
-\* an earlier rule does not lower the shortage of a later rule - a phantom shortage that copies nothing.)
-Replicates(d) == \E k \in 1..Len(d.tasks) : Len(d.tasks[k].nodes) > 0
-Quiet(hs) == \A n \in hs : LET d == Decide27(n, hs, {}, {}) IN ~Replicates(d) /\ d.del = "none"
-NoTasks(hs) == \A n \in hs : ~Replicates(Decide27(n, hs, {}, {}))
-q\* a check "replicates" when it hands the replicator a task with at least one candidate node. (With overlapping
-\* rules the code as found keeps calling the replicator with an EMPTY candidate list: a holder remembered from
-\* an earlier rule does not lower the shortage of a later rule - a phantom shortage that copies nothing.)
-Replicates(d) == \E k \in 1..Len(d.tasks) : Len(d.tasks[k].nodes) > 0
-Quiet(hs) == \A n \in hs : LET d == Decide27(n, hs, {}, {}) IN ~Replicates(d) /\ d.del = "none"
-NoTasks(hs) == \A n \in hs : ~Replicates(Decide27(n, hs, {}, {}))
-u\* a check "replicates" when it hands the replicator a task with at least one candidate node. (With overlapping
-\* rules the code as found keeps calling the replicator with an EMPTY candidate list: a holder remembered from
-\* an earlier rule does not lower the shortage of a later rule - a phantom shortage that copies nothing.)
-Replicates(d) == \E k \in 1..Len(d.tasks) : Len(d.tasks[k].nodes) > 0
-Quiet(hs) == \A n \in hs : LET d == Decide27(n, hs, {}, {}) IN ~Replicates(d) /\ d.del = "none"
-NoTasks(hs) == \A n \in hs : ~Replicates(Decide27(n, hs, {}, {}))
-i\* a check "replicates" when it hands the replicator a task with at least one candidate node. (With overlapping
-\* rules the code as found keeps calling the replicator with an EMPTY candidate list: a holder remembered from
-\* an earlier rule does not lower the shortage of a later rule - a phantom shortage that copies nothing.)
-Replicates(d) == \E k \in 1..Len(d.tasks) : Len(d.tasks[k].nodes) > 0
-Quiet(hs) == \A n \in hs : LET d == Decide27(n, hs, {}, {}) IN ~Replicates(d) /\ d.del = "none"
-NoTasks(hs) == \A n \in hs : ~Replicates(Decide27(n, hs, {}, {}))
-r\* a check "replicates" when it hands the replicator a task with at least one candidate node. (With overlapping
-\* rules the code as found keeps calling the replicator with an EMPTY candidate list: a holder remembered from
-\* an earlier rule does not lower the shortage of a later rule - a phantom shortage that copies nothing.)
-Replicates(d) == \E k \in 1..Len(d.tasks) : Len(d.tasks[k].nodes) > 0
-Quiet(hs) == \A n \in hs : LET d == Decide27(n, hs, {}, {}) IN ~Replicates(d) /\ d.del = "none"
-NoTasks(hs) == \A n \in hs : ~Replicates(Decide27(n, hs, {}, {}))
-e\* a check "replicates" when it hands the replicator a task with at least one candidate node. (With overlapping
-\* rules the code as found keeps calling the replicator with an EMPTY candidate list: a holder remembered from
-\* an earlier rule does not lower the shortage of a later rule - a phantom shortage that copies nothing.)
-Replicates(d) == \E k \in 1..Len(d.tasks) : Len(d.tasks[k].nodes) > 0
-Quiet(hs) == \A n \in hs : LET d == Decide27(n, hs, {}, {}) IN ~Replicates(d) /\ d.del = "none"
-NoTasks(hs) == \A n \in hs : ~Replicates(Decide27(n, hs, {}, {}))
-d\* a check "replicates" when it hands the replicator a task with at least one candidate node. (With overlapping
-\* rules the code as found keeps calling the replicator with an EMPTY candidate list: a holder remembered from
-\* an earlier rule does not lower the shortage of a later rule - a phantom shortage that copies nothing.)
-Replicates(d) == \E k \in 1..Len(d.tasks) : Len(d.tasks[k].nodes) > 0
-Quiet(hs) == \A n \in hs : LET d == Decide27(n, hs, {}, {}) IN ~Replicates(d) /\ d.del = "none"
-NoTasks(hs) == \A n \in hs : ~Replicates(Decide27(n, hs, {}, {}))
- \* a check "replicates" when it hands the replicator a task with at least one candidate node. (With overlapping
-\* rules the code as found keeps calling the replicator with an EMPTY candidate list: a holder remembered from
-\* an earlier rule does not lower the shortage of a later rule - a phantom shortage that copies nothing.)
-Replicates(d) == \E k \in 1..Len(d.tasks) : Len(d.tasks[k].nodes) > 0
-Quiet(hs) == \A n \in hs : LET d == Decide27(n, hs, {}, {}) IN ~Replicates(d) /\ d.del = "none"
-NoTasks(hs) == \A n \in hs : ~Replicates(Decide27(n, hs, {}, {}))
-r\* a check "replicates" when it hands the replicator a task with at least one candidate node. (With overlapping
-\* rules the code as found keeps calling the replicator with an EMPTY candidate list: a holder remembered from
-\* an earlier rule does not lower the shortage of a later rule - a phantom shortage that copies nothing.)
-Replicates(d) == \E k \in 1..Len(d.tasks) : Len(d.tasks[k].nodes) > 0
-Quiet(hs) == \A n \in hs : LET d == Decide27(n, hs, {}, {}) IN ~Replicates(d) /\ d.del = "none"
-NoTasks(hs) == \A n \in hs : ~Replicates(Decide27(n, hs, {}, {}))
-e\* a check "replicates" when it hands the replicator a task with at least one candidate node. (With overlapping
-\* rules the code as found keeps calling the replicator with an EMPTY candidate list: a holder remembered from
-\* an earlier rule does not lower the shortage of a later rule - a phantom shortage that copies nothing.)
-Replicates(d) == \E k \in 1..Len(d.tasks) : Len(d.tasks[k].nodes) > 0
-Quiet(hs) == \A n \in hs : LET d == Decide27(n, hs, {}, {}) IN ~Replicates(d) /\ d.del = "none"
-NoTasks(hs) == \A n \in hs : ~Replicates(Decide27(n, hs, {}, {}))
-p\* a check "replicates" when it hands the replicator a task with at least one candidate node. (With overlapping
-\* rules the code as found keeps calling the replicator with an EMPTY candidate list: a holder remembered from
-\* an earlier rule does not lower the shortage of a later rule - a phantom shortage that copies nothing.)
-Replicates(d) == \E k \in 1..Len(d.tasks) : Len(d.tasks[k].nodes) > 0
-Quiet(hs) == \A n \in hs : LET d == Decide27(n, hs, {}, {}) IN ~Replicates(d) /\ d.del = "none"
-NoTasks(hs) == \A n \in hs : ~Replicates(Decide27(n, hs, {}, {}))
-l\* a check "replicates" when it hands the replicator a task with at least one candidate node. (With overlapping
-\* rules the code as found keeps calling the replicator with an EMPTY candidate list: a holder remembered from
-\* an earlier rule does not lower the shortage of a later rule - a phantom shortage that copies nothing.)
-Replicates(d) == \E k \in 1..Len(d.tasks) : Len(d.tasks[k].nodes) > 0
-Quiet(hs) == \A n \in hs : LET d == Decide27(n, hs, {}, {}) IN ~Replicates(d) /\ d.del = "none"
-NoTasks(hs) == \A n \in hs : ~Replicates(Decide27(n, hs, {}, {}))
-i\* a check "replicates" when it hands the replicator a task with at least one candidate node. (With overlapping
-\* rules the code as found keeps calling the replicator with an EMPTY candidate list: a holder remembered from
-\* an earlier rule does not lower the shortage of a later rule - a phantom shortage that copies nothing.)
-Replicates(d) == \E k \in 1..Len(d.tasks) : Len(d.tasks[k].nodes) > 0
-Quiet(hs) == \A n \in hs : LET d == Decide27(n, hs, {}, {}) IN ~Replicates(d) /\ d.del = "none"
-NoTasks(hs) == \A n \in hs : ~Replicates(Decide27(n, hs, {}, {}))
-c\* a check "replicates" when it hands the replicator a task with at least one candidate node. (With overlapping
-\* rules the code as found keeps calling the replicator with an EMPTY candidate list: a holder remembered from
-\* an earlier rule does not lower the shortage of a later rule - a phantom shortage that copies nothing.)
-Replicates(d) == \E k \in 1..Len(d.tasks) : Len(d.tasks[k].nodes) > 0
-Quiet(hs) == \A n \in hs : LET d == Decide27(n, hs, {}, {}) IN ~Replicates(d) /\ d.del = "none"
-NoTasks(hs) == \A n \in hs : ~Replicates(Decide27(n, hs, {}, {}))
-a\* a check "replicates" when it hands the replicator a task with at least one candidate node. (With overlapping
-\* rules the code as found keeps calling the replicator with an EMPTY candidate list: a holder remembered from
-\* an earlier rule does not lower the shortage of a later rule - a phantom shortage that copies nothing.)
-Replicates(d) == \E k \in 1..Len(d.tasks) : Len(d.tasks[k].nodes) > 0
-Quiet(hs) == \A n \in hs : LET d == Decide27(n, hs, {}, {}) IN ~Replicates(d) /\ d.del = "none"
-NoTasks(hs) == \A n \in hs : ~Replicates(Decide27(n, hs, {}, {}))
-s\* a check "replicates" when it hands the replicator a task with at least one candidate node. (With overlapping
-\* rules the code as found keeps calling the replicator with an EMPTY candidate list: a holder remembered from
-\* an earlier rule does not lower the shortage of a later rule - a phantom shortage that copies nothing.)
-Replicates(d) == \E k \in 1..Len(d.tasks) : Len(d.tasks[k].nodes) > 0
-Quiet(hs) == \A n \in hs : LET d == Decide27(n, hs, {}, {}) IN ~Replicates(d) /\ d.del = "none"
-NoTasks(hs) == \A n \in hs : ~Replicates(Decide27(n, hs, {}, {}))
-.\* a check "replicates" when it hands the replicator a task with at least one candidate node. (With overlapping
-\* rules the code as found keeps calling the replicator with an EMPTY candidate list: a holder remembered from
-\* an earlier rule does not lower the shortage of a later rule - a phantom shortage that copies nothing.)
-Replicates(d) == \E k \in 1..Len(d.tasks) : Len(d.tasks[k].nodes) > 0
-Quiet(hs) == \A n \in hs : LET d == Decide27(n, hs, {}, {}) IN ~Replicates(d) /\ d.del = "none"
-NoTasks(hs) == \A n \in hs : ~Replicates(Decide27(n, hs, {}, {}))
-
-\* a check "replicates" when it hands the replicator a task with at least one candidate node. (With overlapping
-\* rules the code as found keeps calling the replicator with an EMPTY candidate list: a holder remembered from
-\* an earlier rule does not lower the shortage of a later rule - a phantom shortage that copies nothing.)
-Replicates(d) == \E k \in 1..Len(d.tasks) : Len(d.tasks[k].nodes) > 0
-Quiet(hs) == \A n \in hs : LET d == Decide27(n, hs, {}, {}) IN ~Replicates(d) /\ d.del = "none"
-NoTasks(hs) == \A n \in hs : ~Replicates(Decide27(n, hs, {}, {}))
-
-\* a check "replicates" when it hands the replicator a task with at least one candidate node. (With overlapping
-\* rules the code as found keeps calling the replicator with an EMPTY candidate list: a holder remembered from
-\* an earlier rule does not lower the shortage of a later rule - a phantom shortage that copies nothing.)
-Replicates(d) == \E k \in 1..Len(d.tasks) : Len(d.tasks[k].nodes) > 0
-Quiet(hs) == \A n \in hs : LET d == Decide27(n, hs, {}, {}) IN ~Replicates(d) /\ d.del = "none"
-NoTasks(hs) == \A n \in hs : ~Replicates(Decide27(n, hs, {}, {}))
- \* a check "replicates" when it hands the replicator a task with at least one candidate node. (With overlapping
-\* rules the code as found keeps calling the replicator with an EMPTY candidate list: a holder remembered from
-\* an earlier rule does not lower the shortage of a later rule - a phantom shortage that copies nothing.)
-Replicates(d) == \E k \in 1..Len(d.tasks) : Len(d.tasks[k].nodes) > 0
-Quiet(hs) == \A n \in hs : LET d == Decide27(n, hs, {}, {}) IN ~Replicates(d) /\ d.del = "none"
-NoTasks(hs) == \A n \in hs : ~Replicates(Decide27(n, hs, {}, {}))
- \* a check "replicates" when it hands the replicator a task with at least one candidate node. (With overlapping
-\* rules the code as found keeps calling the replicator with an EMPTY candidate list: a holder remembered from
-\* an earlier rule does not lower the shortage of a later rule - a phantom shortage that copies nothing.)
-Replicates(d) == \E k \in 1..Len(d.tasks) : Len(d.tasks[k].nodes) > 0
-Quiet(hs) == \A n \in hs : LET d == Decide27(n, hs, {}, {}) IN ~Replicates(d) /\ d.del = "none"
-NoTasks(hs) == \A n \in hs : ~Replicates(Decide27(n, hs, {}, {}))
- \* a check "replicates" when it hands the replicator a task with at least one candidate node. (With overlapping
-\* rules the code as found keeps calling the replicator with an EMPTY candidate list: a holder remembered from
-\* an earlier rule does not lower the shortage of a later rule - a phantom shortage that copies nothing.)
-Replicates(d) == \E k \in 1..Len(d.tasks) : Len(d.tasks[k].nodes) > 0
-Quiet(hs) == \A n \in hs : LET d == Decide27(n, hs, {}, {}) IN ~Replicates(d) /\ d.del = "none"
-NoTasks(hs) == \A n \in hs : ~Replicates(Decide27(n, hs, {}, {}))
-A\* a check "replicates" when it hands the replicator a task with at least one candidate node. (With overlapping
-\* rules the code as found keeps calling the replicator with an EMPTY candidate list: a holder remembered from
-\* an earlier rule does not lower the shortage of a later rule - a phantom shortage that copies nothing.)
-Replicates(d) == \E k \in 1..Len(d.tasks) : Len(d.tasks[k].nodes) > 0
-Quiet(hs) == \A n \in hs : LET d == Decide27(n, hs, {}, {}) IN ~Replicates(d) /\ d.del = "none"
-NoTasks(hs) == \A n \in hs : ~Replicates(Decide27(n, hs, {}, {}))
- \* a check "replicates" when it hands the replicator a task with at least one candidate node. (With overlapping
-\* rules the code as found keeps calling the replicator with an EMPTY candidate list: a holder remembered from
-\* an earlier rule does not lower the shortage of a later rule - a phantom shortage that copies nothing.)
-Replicates(d) == \E k \in 1..Len(d.tasks) : Len(d.tasks[k].nodes) > 0
-Quiet(hs) == \A n \in hs : LET d == Decide27(n, hs, {}, {}) IN ~Replicates(d) /\ d.del = "none"
-NoTasks(hs) == \A n \in hs : ~Replicates(Decide27(n, hs, {}, {}))
-c\* a check "replicates" when it hands the replicator a task with at least one candidate node. (With overlapping
-\* rules the code as found keeps calling the replicator with an EMPTY candidate list: a holder remembered from
-\* an earlier rule does not lower the shortage of a later rule - a phantom shortage that copies nothing.)
-Replicates(d) == \E k \in 1..Len(d.tasks) : Len(d.tasks[k].nodes) > 0
-Quiet(hs) == \A n \in hs : LET d == Decide27(n, hs, {}, {}) IN ~Replicates(d) /\ d.del = "none"
-NoTasks(hs) == \A n \in hs : ~Replicates(Decide27(n, hs, {}, {}))
-l\* a check "replicates" when it hands the replicator a task with at least one candidate node. (With overlapping
-\* rules the code as found keeps calling the replicator with an EMPTY candidate list: a holder remembered from
-\* an earlier rule does not lower the shortage of a later rule - a phantom shortage that copies nothing.)
-Replicates(d) == \E k \in 1..Len(d.tasks) : Len(d.tasks[k].nodes) > 0
-Quiet(hs) == \A n \in hs : LET d == Decide27(n, hs, {}, {}) IN ~Replicates(d) /\ d.del = "none"
-NoTasks(hs) == \A n \in hs : ~Replicates(Decide27(n, hs, {}, {}))
-u\* a check "replicates" when it hands the replicator a task with at least one candidate node. (With overlapping
-\* rules the code as found keeps calling the replicator with an EMPTY candidate list: a holder remembered from
-\* an earlier rule does not lower the shortage of a later rule - a phantom shortage that copies nothing.)
-Replicates(d) == \E k \in 1..Len(d.tasks) : Len(d.tasks[k].nodes) > 0
-Quiet(hs) == \A n \in hs : LET d == Decide27(n, hs, {}, {}) IN ~Replicates(d) /\ d.del = "none"
-NoTasks(hs) == \A n \in hs : ~Replicates(Decide27(n, hs, {}, {}))
-s\* a check "replicates" when it hands the replicator a task with at least one candidate node. (With overlapping
-\* rules the code as found keeps calling the replicator with an EMPTY candidate list: a holder remembered from
-\* an earlier rule does not lower the shortage of a later rule - a phantom shortage that copies nothing.)
-Replicates(d) == \E k \in 1..Len(d.tasks) : Len(d.tasks[k].nodes) > 0
-Quiet(hs) == \A n \in hs : LET d == Decide27(n, hs, {}, {}) IN ~Replicates(d) /\ d.del = "none"
-NoTasks(hs) == \A n \in hs : ~Replicates(Decide27(n, hs, {}, {}))
-t\* a check "replicates" when it hands the replicator a task with at least one candidate node. (With overlapping
-\* rules the code as found keeps calling the replicator with an EMPTY candidate list: a holder remembered from
-\* an earlier rule does not lower the shortage of a later rule - a phantom shortage that copies nothing.)
-Replicates(d) == \E k \in 1..Len(d.tasks) : Len(d.tasks[k].nodes) > 0
-Quiet(hs) == \A n \in hs : LET d == Decide27(n, hs, {}, {}) IN ~Replicates(d) /\ d.del = "none"
-NoTasks(hs) == \A n \in hs : ~Replicates(Decide27(n, hs, {}, {}))
-e\* a check "replicates" when it hands the replicator a task with at least one candidate node. (With overlapping
-\* rules the code as found keeps calling the replicator with an EMPTY candidate list: a holder remembered from
-\* an earlier rule does not lower the shortage of a later rule - a phantom shortage that copies nothing.)
-Replicates(d) == \E k \in 1..Len(d.tasks) : Len(d.tasks[k].nodes) > 0
-Quiet(hs) == \A n \in hs : LET d == Decide27(n, hs, {}, {}) IN ~Replicates(d) /\ d.del = "none"
-NoTasks(hs) == \A n \in hs : ~Replicates(Decide27(n, hs, {}, {}))
-r\* a check "replicates" when it hands the replicator a task with at least one candidate node. (With overlapping
-\* rules the code as found keeps calling the replicator with an EMPTY candidate list: a holder remembered from
-\* an earlier rule does not lower the shortage of a later rule - a phantom shortage that copies nothing.)
-Replicates(d) == \E k \in 1..Len(d.tasks) : Len(d.tasks[k].nodes) > 0
-Quiet(hs) == \A n \in hs : LET d == Decide27(n, hs, {}, {}) IN ~Replicates(d) /\ d.del = "none"
-NoTasks(hs) == \A n \in hs : ~Replicates(Decide27(n, hs, {}, {}))
- \* a check "replicates" when it hands the replicator a task with at least one candidate node. (With overlapping
-\* rules the code as found keeps calling the replicator with an EMPTY candidate list: a holder remembered from
-\* an earlier rule does not lower the shortage of a later rule - a phantom shortage that copies nothing.)
-Replicates(d) == \E k \in 1..Len(d.tasks) : Len(d.tasks[k].nodes) > 0
-Quiet(hs) == \A n \in hs : LET d == Decide27(n, hs, {}, {}) IN ~Replicates(d) /\ d.del = "none"
-NoTasks(hs) == \A n \in hs : ~Replicates(Decide27(n, hs, {}, {}))
-o\* a check "replicates" when it hands the replicator a task with at least one candidate node. (With overlapping
-\* rules the code as found keeps calling the replicator with an EMPTY candidate list: a holder remembered from
-\* an earlier rule does not lower the shortage of a later rule - a phantom shortage that copies nothing.)
-Replicates(d) == \E k \in 1..Len(d.tasks) : Len(d.tasks[k].nodes) > 0
-Quiet(hs) == \A n \in hs : LET d == Decide27(n, hs, {}, {}) IN ~Replicates(d) /\ d.del = "none"
-NoTasks(hs) == \A n \in hs : ~Replicates(Decide27(n, hs, {}, {}))
-f\* a check "replicates" when it hands the replicator a task with at least one candidate node. (With overlapping
-\* rules the code as found keeps calling the replicator with an EMPTY candidate list: a holder remembered from
-\* an earlier rule does not lower the shortage of a later rule - a phantom shortage that copies nothing.)
-Replicates(d) == \E k \in 1..Len(d.tasks) : Len(d.tasks[k].nodes) > 0
-Quiet(hs) == \A n \in hs : LET d == Decide27(n, hs, {}, {}) IN ~Replicates(d) /\ d.del = "none"
-NoTasks(hs) == \A n \in hs : ~Replicates(Decide27(n, hs, {}, {}))
- \* a check "replicates" when it hands the replicator a task with at least one candidate node. (With overlapping
-\* rules the code as found keeps calling the replicator with an EMPTY candidate list: a holder remembered from
-\* an earlier rule does not lower the shortage of a later rule - a phantom shortage that copies nothing.)
-Replicates(d) == \E k \in 1..Len(d.tasks) : Len(d.tasks[k].nodes) > 0
-Quiet(hs) == \A n \in hs : LET d == Decide27(n, hs, {}, {}) IN ~Replicates(d) /\ d.del = "none"
-NoTasks(hs) == \A n \in hs : ~Replicates(Decide27(n, hs, {}, {}))
-n\* a check "replicates" when it hands the replicator a task with at least one candidate node. (With overlapping
-\* rules the code as found keeps calling the replicator with an EMPTY candidate list: a holder remembered from
-\* an earlier rule does not lower the shortage of a later rule - a phantom shortage that copies nothing.)
-Replicates(d) == \E k \in 1..Len(d.tasks) : Len(d.tasks[k].nodes) > 0
-Quiet(hs) == \A n \in hs : LET d == Decide27(n, hs, {}, {}) IN ~Replicates(d) /\ d.del = "none"
-NoTasks(hs) == \A n \in hs : ~Replicates(Decide27(n, hs, {}, {}))
-o\* a check "replicates" when it hands the replicator a task with at least one candidate node. (With overlapping
-\* rules the code as found keeps calling the replicator with an EMPTY candidate list: a holder remembered from
-\* an earlier rule does not lower the shortage of a later rule - a phantom shortage that copies nothing.)
-Replicates(d) == \E k \in 1..Len(d.tasks) : Len(d.tasks[k].nodes) > 0
-Quiet(hs) == \A n \in hs : LET d == Decide27(n, hs, {}, {}) IN ~Replicates(d) /\ d.del = "none"
-NoTasks(hs) == \A n \in hs : ~Replicates(Decide27(n, hs, {}, {}))
-d\* a check "replicates" when it hands the replicator a task with at least one candidate node. (With overlapping
-\* rules the code as found keeps calling the replicator with an EMPTY candidate list: a holder remembered from
-\* an earlier rule does not lower the shortage of a later rule - a phantom shortage that copies nothing.)
-Replicates(d) == \E k \in 1..Len(d.tasks) : Len(d.tasks[k].nodes) > 0
-Quiet(hs) == \A n \in hs : LET d == Decide27(n, hs, {}, {}) IN ~Replicates(d) /\ d.del = "none"
-NoTasks(hs) == \A n \in hs : ~Replicates(Decide27(n, hs, {}, {}))
-e\* a check "replicates" when it hands the replicator a task with at least one candidate node. (With overlapping
-\* rules the code as found keeps calling the replicator with an EMPTY candidate list: a holder remembered from
-\* an earlier rule does not lower the shortage of a later rule - a phantom shortage that copies nothing.)
-Replicates(d) == \E k \in 1..Len(d.tasks) : Len(d.tasks[k].nodes) > 0
-Quiet(hs) == \A n \in hs : LET d == Decide27(n, hs, {}, {}) IN ~Replicates(d) /\ d.del = "none"
-NoTasks(hs) == \A n \in hs : ~Replicates(Decide27(n, hs, {}, {}))
-s\* a check "replicates" when it hands the replicator a task with at least one candidate node. (With overlapping
-\* rules the code as found keeps calling the replicator with an EMPTY candidate list: a holder remembered from
-\* an earlier rule does not lower the shortage of a later rule - a phantom shortage that copies nothing.)
-Replicates(d) == \E k \in 1..Len(d.tasks) : Len(d.tasks[k].nodes) > 0
-Quiet(hs) == \A n \in hs : LET d == Decide27(n, hs, {}, {}) IN ~Replicates(d) /\ d.del = "none"
-NoTasks(hs) == \A n \in hs : ~Replicates(Decide27(n, hs, {}, {}))
- \* a check "replicates" when it hands the replicator a task with at least one candidate node. (With overlapping
-\* rules the code as found keeps calling the replicator with an EMPTY candidate list: a holder remembered from
-\* an earlier rule does not lower the shortage of a later rule - a phantom shortage that copies nothing.)
-Replicates(d) == \E k \in 1..Len(d.tasks) : Len(d.tasks[k].nodes) > 0
-Quiet(hs) == \A n \in hs : LET d == Decide27(n, hs, {}, {}) IN ~Replicates(d) /\ d.del = "none"
-NoTasks(hs) == \A n \in hs : ~Replicates(Decide27(n, hs, {}, {}))
-1\* a check "replicates" when it hands the replicator a task with at least one candidate node. (With overlapping
-\* rules the code as found keeps calling the replicator with an EMPTY candidate list: a holder remembered from
-\* an earlier rule does not lower the shortage of a later rule - a phantom shortage that copies nothing.)
-Replicates(d) == \E k \in 1..Len(d.tasks) : Len(d.tasks[k].nodes) > 0
-Quiet(hs) == \A n \in hs : LET d == Decide27(n, hs, {}, {}) IN ~Replicates(d) /\ d.del = "none"
-NoTasks(hs) == \A n \in hs : ~Replicates(Decide27(n, hs, {}, {}))
-.\* a check "replicates" when it hands the replicator a task with at least one candidate node. (With overlapping
-\* rules the code as found keeps calling the replicator with an EMPTY candidate list: a holder remembered from
-\* an earlier rule does not lower the shortage of a later rule - a phantom shortage that copies nothing.)
-Replicates(d) == \E k \in 1..Len(d.tasks) : Len(d.tasks[k].nodes) > 0
-Quiet(hs) == \A n \in hs : LET d == Decide27(n, hs, {}, {}) IN ~Replicates(d) /\ d.del = "none"
-NoTasks(hs) == \A n \in hs : ~Replicates(Decide27(n, hs, {}, {}))
-.\* a check "replicates" when it hands the replicator a task with at least one candidate node. (With overlapping
-\* rules the code as found keeps calling the replicator with an EMPTY candidate list: a holder remembered from
-\* an earlier rule does not lower the shortage of a later rule - a phantom shortage that copies nothing.)
-Replicates(d) == \E k \in 1..Len(d.tasks) : Len(d.tasks[k].nodes) > 0
-Quiet(hs) == \A n \in hs : LET d == Decide27(n, hs, {}, {}) IN ~Replicates(d) /\ d.del = "none"
-NoTasks(hs) == \A n \in hs : ~Replicates(Decide27(n, hs, {}, {}))
-N\* a check "replicates" when it hands the replicator a task with at least one candidate node. (With overlapping
-\* rules the code as found keeps calling the replicator with an EMPTY candidate list: a holder remembered from
-\* an earlier rule does not lower the shortage of a later rule - a phantom shortage that copies nothing.)
-Replicates(d) == \E k \in 1..Len(d.tasks) : Len(d.tasks[k].nodes) > 0
-Quiet(hs) == \A n \in hs : LET d == Decide27(n, hs, {}, {}) IN ~Replicates(d) /\ d.del = "none"
-NoTasks(hs) == \A n \in hs : ~Replicates(Decide27(n, hs, {}, {}))
-,\* a check "replicates" when it hands the replicator a task with at least one candidate node. (With overlapping
-\* rules the code as found keeps calling the replicator with an EMPTY candidate list: a holder remembered from
-\* an earlier rule does not lower the shortage of a later rule - a phantom shortage that copies nothing.)
-Replicates(d) == \E k \in 1..Len(d.tasks) : Len(d.tasks[k].nodes) > 0
-Quiet(hs) == \A n \in hs : LET d == Decide27(n, hs, {}, {}) IN ~Replicates(d) /\ d.del = "none"
-NoTasks(hs) == \A n \in hs : ~Replicates(Decide27(n, hs, {}, {}))
- \* a check "replicates" when it hands the replicator a task with at least one candidate node. (With overlapping
-\* rules the code as found keeps calling the replicator with an EMPTY candidate list: a holder remembered from
-\* an earlier rule does not lower the shortage of a later rule - a phantom shortage that copies nothing.)
-Replicates(d) == \E k \in 1..Len(d.tasks) : Len(d.tasks[k].nodes) > 0
-Quiet(hs) == \A n \in hs : LET d == Decide27(n, hs, {}, {}) IN ~Replicates(d) /\ d.del = "none"
-NoTasks(hs) == \A n \in hs : ~Replicates(Decide27(n, hs, {}, {}))
-o\* a check "replicates" when it hands the replicator a task with at least one candidate node. (With overlapping
-\* rules the code as found keeps calling the replicator with an EMPTY candidate list: a holder remembered from
-\* an earlier rule does not lower the shortage of a later rule - a phantom shortage that copies nothing.)
-Replicates(d) == \E k \in 1..Len(d.tasks) : Len(d.tasks[k].nodes) > 0
-Quiet(hs) == \A n \in hs : LET d == Decide27(n, hs, {}, {}) IN ~Replicates(d) /\ d.del = "none"
-NoTasks(hs) == \A n \in hs : ~Replicates(Decide27(n, hs, {}, {}))
-n\* a check "replicates" when it hands the replicator a task with at least one candidate node. (With overlapping
-\* rules the code as found keeps calling the replicator with an EMPTY candidate list: a holder remembered from
-\* an earlier rule does not lower the shortage of a later rule - a phantom shortage that copies nothing.)
-Replicates(d) == \E k \in 1..Len(d.tasks) : Len(d.tasks[k].nodes) > 0
-Quiet(hs) == \A n \in hs : LET d == Decide27(n, hs, {}, {}) IN ~Replicates(d) /\ d.del = "none"
-NoTasks(hs) == \A n \in hs : ~Replicates(Decide27(n, hs, {}, {}))
-e\* a check "replicates" when it hands the replicator a task with at least one candidate node. (With overlapping
-\* rules the code as found keeps calling the replicator with an EMPTY candidate list: a holder remembered from
-\* an earlier rule does not lower the shortage of a later rule - a phantom shortage that copies nothing.)
-Replicates(d) == \E k \in 1..Len(d.tasks) : Len(d.tasks[k].nodes) > 0
-Quiet(hs) == \A n \in hs : LET d == Decide27(n, hs, {}, {}) IN ~Replicates(d) /\ d.del = "none"
-NoTasks(hs) == \A n \in hs : ~Replicates(Decide27(n, hs, {}, {}))
- \* a check "replicates" when it hands the replicator a task with at least one candidate node. (With overlapping
-\* rules the code as found keeps calling the replicator with an EMPTY candidate list: a holder remembered from
-\* an earlier rule does not lower the shortage of a later rule - a phantom shortage that copies nothing.)
-Replicates(d) == \E k \in 1..Len(d.tasks) : Len(d.tasks[k].nodes) > 0
-Quiet(hs) == \A n \in hs : LET d == Decide27(n, hs, {}, {}) IN ~Replicates(d) /\ d.del = "none"
-NoTasks(hs) == \A n \in hs : ~Replicates(Decide27(n, hs, {}, {}))
-o\* a check "replicates" when it hands the replicator a task with at least one candidate node. (With overlapping
-\* rules the code as found keeps calling the replicator with an EMPTY candidate list: a holder remembered from
-\* an earlier rule does not lower the shortage of a later rule - a phantom shortage that copies nothing.)
-Replicates(d) == \E k \in 1..Len(d.tasks) : Len(d.tasks[k].nodes) > 0
-Quiet(hs) == \A n \in hs : LET d == Decide27(n, hs, {}, {}) IN ~Replicates(d) /\ d.del = "none"
-NoTasks(hs) == \A n \in hs : ~Replicates(Decide27(n, hs, {}, {}))
-b\* a check "replicates" when it hands the replicator a task with at least one candidate node. (With overlapping
-\* rules the code as found keeps calling the replicator with an EMPTY candidate list: a holder remembered from
-\* an earlier rule does not lower the shortage of a later rule - a phantom shortage that copies nothing.)
-Replicates(d) == \E k \in 1..Len(d.tasks) : Len(d.tasks[k].nodes) > 0
-Quiet(hs) == \A n \in hs : LET d == Decide27(n, hs, {}, {}) IN ~Replicates(d) /\ d.del = "none"
-NoTasks(hs) == \A n \in hs : ~Replicates(Decide27(n, hs, {}, {}))
-j\* a check "replicates" when it hands the replicator a task with at least one candidate node. (With overlapping
-\* rules the code as found keeps calling the replicator with an EMPTY candidate list: a holder remembered from
-\* an earlier rule does not lower the shortage of a later rule - a phantom shortage that copies nothing.)
-Replicates(d) == \E k \in 1..Len(d.tasks) : Len(d.tasks[k].nodes) > 0
-Quiet(hs) == \A n \in hs : LET d == Decide27(n, hs, {}, {}) IN ~Replicates(d) /\ d.del = "none"
-NoTasks(hs) == \A n \in hs : ~Replicates(Decide27(n, hs, {}, {}))
-e\* a check "replicates" when it hands the replicator a task with at least one candidate node. (With overlapping
-\* rules the code as found keeps calling the replicator with an EMPTY candidate list: a holder remembered from
-\* an earlier rule does not lower the shortage of a later rule - a phantom shortage that copies nothing.)
-Replicates(d) == \E k \in 1..Len(d.tasks) : Len(d.tasks[k].nodes) > 0
-Quiet(hs) == \A n \in hs : LET d == Decide27(n, hs, {}, {}) IN ~Replicates(d) /\ d.del = "none"
-NoTasks(hs) == \A n \in hs : ~Replicates(Decide27(n, hs, {}, {}))
-c\* a check "replicates" when it hands the replicator a task with at least one candidate node. (With overlapping
-\* rules the code as found keeps calling the replicator with an EMPTY candidate list: a holder remembered from
-\* an earlier rule does not lower the shortage of a later rule - a phantom shortage that copies nothing.)
-Replicates(d) == \E k \in 1..Len(d.tasks) : Len(d.tasks[k].nodes) > 0
-Quiet(hs) == \A n \in hs : LET d == Decide27(n, hs, {}, {}) IN ~Replicates(d) /\ d.del = "none"
-NoTasks(hs) == \A n \in hs : ~Replicates(Decide27(n, hs, {}, {}))
-t\* a check "replicates" when it hands the replicator a task with at least one candidate node. (With overlapping
-\* rules the code as found keeps calling the replicator with an EMPTY candidate list: a holder remembered from
-\* an earlier rule does not lower the shortage of a later rule - a phantom shortage that copies nothing.)
-Replicates(d) == \E k \in 1..Len(d.tasks) : Len(d.tasks[k].nodes) > 0
-Quiet(hs) == \A n \in hs : LET d == Decide27(n, hs, {}, {}) IN ~Replicates(d) /\ d.del = "none"
-NoTasks(hs) == \A n \in hs : ~Replicates(Decide27(n, hs, {}, {}))
- \* a check "replicates" when it hands the replicator a task with at least one candidate node. (With overlapping
-\* rules the code as found keeps calling the replicator with an EMPTY candidate list: a holder remembered from
-\* an earlier rule does not lower the shortage of a later rule - a phantom shortage that copies nothing.)
-Replicates(d) == \E k \in 1..Len(d.tasks) : Len(d.tasks[k].nodes) > 0
-Quiet(hs) == \A n \in hs : LET d == Decide27(n, hs, {}, {}) IN ~Replicates(d) /\ d.del = "none"
-NoTasks(hs) == \A n \in hs : ~Replicates(Decide27(n, hs, {}, {}))
-(\* a check "replicates" when it hands the replicator a task with at least one candidate node. (With overlapping
-\* rules the code as found keeps calling the replicator with an EMPTY candidate list: a holder remembered from
-\* an earlier rule does not lower the shortage of a later rule - a phantom shortage that copies nothing.)
-Replicates(d) == \E k \in 1..Len(d.tasks) : Len(d.tasks[k].nodes) > 0
-Quiet(hs) == \A n \in hs : LET d == Decide27(n, hs, {}, {}) IN ~Replicates(d) /\ d.del = "none"
-NoTasks(hs) == \A n \in hs : ~Replicates(Decide27(n, hs, {}, {}))
-o\* a check "replicates" when it hands the replicator a task with at least one candidate node. (With overlapping
-\* rules the code as found keeps calling the replicator with an EMPTY candidate list: a holder remembered from
-\* an earlier rule does not lower the shortage of a later rule - a phantom shortage that copies nothing.)
-Replicates(d) == \E k \in 1..Len(d.tasks) : Len(d.tasks[k].nodes) > 0
-Quiet(hs) == \A n \in hs : LET d == Decide27(n, hs, {}, {}) IN ~Replicates(d) /\ d.del = "none"
-NoTasks(hs) == \A n \in hs : ~Replicates(Decide27(n, hs, {}, {}))
-b\* a check "replicates" when it hands the replicator a task with at least one candidate node. (With overlapping
-\* rules the code as found keeps calling the replicator with an EMPTY candidate list: a holder remembered from
-\* an earlier rule does not lower the shortage of a later rule - a phantom shortage that copies nothing.)
-Replicates(d) == \E k \in 1..Len(d.tasks) : Len(d.tasks[k].nodes) > 0
-Quiet(hs) == \A n \in hs : LET d == Decide27(n, hs, {}, {}) IN ~Replicates(d) /\ d.del = "none"
-NoTasks(hs) == \A n \in hs : ~Replicates(Decide27(n, hs, {}, {}))
-j\* a check "replicates" when it hands the replicator a task with at least one candidate node. (With overlapping
-\* rules the code as found keeps calling the replicator with an EMPTY candidate list: a holder remembered from
-\* an earlier rule does not lower the shortage of a later rule - a phantom shortage that copies nothing.)
-Replicates(d) == \E k \in 1..Len(d.tasks) : Len(d.tasks[k].nodes) > 0
-Quiet(hs) == \A n \in hs : LET d == Decide27(n, hs, {}, {}) IN ~Replicates(d) /\ d.del = "none"
-NoTasks(hs) == \A n \in hs : ~Replicates(Decide27(n, hs, {}, {}))
-e\* a check "replicates" when it hands the replicator a task with at least one candidate node. (With overlapping
-\* rules the code as found keeps calling the replicator with an EMPTY candidate list: a holder remembered from
-\* an earlier rule does not lower the shortage of a later rule - a phantom shortage that copies nothing.)
-Replicates(d) == \E k \in 1..Len(d.tasks) : Len(d.tasks[k].nodes) > 0
-Quiet(hs) == \A n \in hs : LET d == Decide27(n, hs, {}, {}) IN ~Replicates(d) /\ d.del = "none"
-NoTasks(hs) == \A n \in hs : ~Replicates(Decide27(n, hs, {}, {}))
-c\* a check "replicates" when it hands the replicator a task with at least one candidate node. (With overlapping
-\* rules the code as found keeps calling the replicator with an EMPTY candidate list: a holder remembered from
-\* an earlier rule does not lower the shortage of a later rule - a phantom shortage that copies nothing.)
-Replicates(d) == \E k \in 1..Len(d.tasks) : Len(d.tasks[k].nodes) > 0
-Quiet(hs) == \A n \in hs : LET d == Decide27(n, hs, {}, {}) IN ~Replicates(d) /\ d.del = "none"
-NoTasks(hs) == \A n \in hs : ~Replicates(Decide27(n, hs, {}, {}))
-t\* a check "replicates" when it hands the replicator a task with at least one candidate node. (With overlapping
-\* rules the code as found keeps calling the replicator with an EMPTY candidate list: a holder remembered from
-\* an earlier rule does not lower the shortage of a later rule - a phantom shortage that copies nothing.)
-Replicates(d) == \E k \in 1..Len(d.tasks) : Len(d.tasks[k].nodes) > 0
-Quiet(hs) == \A n \in hs : LET d == Decide27(n, hs, {}, {}) IN ~Replicates(d) /\ d.del = "none"
-NoTasks(hs) == \A n \in hs : ~Replicates(Decide27(n, hs, {}, {}))
-s\* a check "replicates" when it hands the replicator a task with at least one candidate node. (With overlapping
-\* rules the code as found keeps calling the replicator with an EMPTY candidate list: a holder remembered from
-\* an earlier rule does not lower the shortage of a later rule - a phantom shortage that copies nothing.)
-Replicates(d) == \E k \in 1..Len(d.tasks) : Len(d.tasks[k].nodes) > 0
-Quiet(hs) == \A n \in hs : LET d == Decide27(n, hs, {}, {}) IN ~Replicates(d) /\ d.del = "none"
-NoTasks(hs) == \A n \in hs : ~Replicates(Decide27(n, hs, {}, {}))
- \* a check "replicates" when it hands the replicator a task with at least one candidate node. (With overlapping
-\* rules the code as found keeps calling the replicator with an EMPTY candidate list: a holder remembered from
-\* an earlier rule does not lower the shortage of a later rule - a phantom shortage that copies nothing.)
-Replicates(d) == \E k \in 1..Len(d.tasks) : Len(d.tasks[k].nodes) > 0
-Quiet(hs) == \A n \in hs : LET d == Decide27(n, hs, {}, {}) IN ~Replicates(d) /\ d.del = "none"
-NoTasks(hs) == \A n \in hs : ~Replicates(Decide27(n, hs, {}, {}))
-a\* a check "replicates" when it hands the replicator a task with at least one candidate node. (With overlapping
-\* rules the code as found keeps calling the replicator with an EMPTY candidate list: a holder remembered from
-\* an earlier rule does not lower the shortage of a later rule - a phantom shortage that copies nothing.)
-Replicates(d) == \E k \in 1..Len(d.tasks) : Len(d.tasks[k].nodes) > 0
-Quiet(hs) == \A n \in hs : LET d == Decide27(n, hs, {}, {}) IN ~Replicates(d) /\ d.del = "none"
-NoTasks(hs) == \A n \in hs : ~Replicates(Decide27(n, hs, {}, {}))
-r\* a check "replicates" when it hands the replicator a task with at least one candidate node. (With overlapping
-\* rules the code as found keeps calling the replicator with an EMPTY candidate list: a holder remembered from
-\* an earlier rule does not lower the shortage of a later rule - a phantom shortage that copies nothing.)
-Replicates(d) == \E k \in 1..Len(d.tasks) : Len(d.tasks[k].nodes) > 0
-Quiet(hs) == \A n \in hs : LET d == Decide27(n, hs, {}, {}) IN ~Replicates(d) /\ d.del = "none"
-NoTasks(hs) == \A n \in hs : ~Replicates(Decide27(n, hs, {}, {}))
-e\* a check "replicates" when it hands the replicator a task with at least one candidate node. (With overlapping
-\* rules the code as found keeps calling the replicator with an EMPTY candidate list: a holder remembered from
-\* an earlier rule does not lower the shortage of a later rule - a phantom shortage that copies nothing.)
-Replicates(d) == \E k \in 1..Len(d.tasks) : Len(d.tasks[k].nodes) > 0
-Quiet(hs) == \A n \in hs : LET d == Decide27(n, hs, {}, {}) IN ~Replicates(d) /\ d.del = "none"
-NoTasks(hs) == \A n \in hs : ~Replicates(Decide27(n, hs, {}, {}))
- \* a check "replicates" when it hands the replicator a task with at least one candidate node. (With overlapping
-\* rules the code as found keeps calling the replicator with an EMPTY candidate list: a holder remembered from
-\* an earlier rule does not lower the shortage of a later rule - a phantom shortage that copies nothing.)
-Replicates(d) == \E k \in 1..Len(d.tasks) : Len(d.tasks[k].nodes) > 0
-Quiet(hs) == \A n \in hs : LET d == Decide27(n, hs, {}, {}) IN ~Replicates(d) /\ d.del = "none"
-NoTasks(hs) == \A n \in hs : ~Replicates(Decide27(n, hs, {}, {}))
-i\* a check "replicates" when it hands the replicator a task with at least one candidate node. (With overlapping
-\* rules the code as found keeps calling the replicator with an EMPTY candidate list: a holder remembered from
-\* an earlier rule does not lower the shortage of a later rule - a phantom shortage that copies nothing.)
-Replicates(d) == \E k \in 1..Len(d.tasks) : Len(d.tasks[k].nodes) > 0
-Quiet(hs) == \A n \in hs : LET d == Decide27(n, hs, {}, {}) IN ~Replicates(d) /\ d.del = "none"
-NoTasks(hs) == \A n \in hs : ~Replicates(Decide27(n, hs, {}, {}))
-n\* a check "replicates" when it hands the replicator a task with at least one candidate node. (With overlapping
-\* rules the code as found keeps calling the replicator with an EMPTY candidate list: a holder remembered from
-\* an earlier rule does not lower the shortage of a later rule - a phantom shortage that copies nothing.)
-Replicates(d) == \E k \in 1..Len(d.tasks) : Len(d.tasks[k].nodes) > 0
-Quiet(hs) == \A n \in hs : LET d == Decide27(n, hs, {}, {}) IN ~Replicates(d) /\ d.del = "none"
-NoTasks(hs) == \A n \in hs : ~Replicates(Decide27(n, hs, {}, {}))
-d\* a check "replicates" when it hands the replicator a task with at least one candidate node. (With overlapping
-\* rules the code as found keeps calling the replicator with an EMPTY candidate list: a holder remembered from
-\* an earlier rule does not lower the shortage of a later rule - a phantom shortage that copies nothing.)
-Replicates(d) == \E k \in 1..Len(d.tasks) : Len(d.tasks[k].nodes) > 0
-Quiet(hs) == \A n \in hs : LET d == Decide27(n, hs, {}, {}) IN ~Replicates(d) /\ d.del = "none"
-NoTasks(hs) == \A n \in hs : ~Replicates(Decide27(n, hs, {}, {}))
-e\* a check "replicates" when it hands the replicator a task with at least one candidate node. (With overlapping
-\* rules the code as found keeps calling the replicator with an EMPTY candidate list: a holder remembered from
-\* an earlier rule does not lower the shortage of a later rule - a phantom shortage that copies nothing.)
-Replicates(d) == \E k \in 1..Len(d.tasks) : Len(d.tasks[k].nodes) > 0
-Quiet(hs) == \A n \in hs : LET d == Decide27(n, hs, {}, {}) IN ~Replicates(d) /\ d.del = "none"
-NoTasks(hs) == \A n \in hs : ~Replicates(Decide27(n, hs, {}, {}))
-p\* a check "replicates" when it hands the replicator a task with at least one candidate node. (With overlapping
-\* rules the code as found keeps calling the replicator with an EMPTY candidate list: a holder remembered from
-\* an earlier rule does not lower the shortage of a later rule - a phantom shortage that copies nothing.)
-Replicates(d) == \E k \in 1..Len(d.tasks) : Len(d.tasks[k].nodes) > 0
-Quiet(hs) == \A n \in hs : LET d == Decide27(n, hs, {}, {}) IN ~Replicates(d) /\ d.del = "none"
-NoTasks(hs) == \A n \in hs : ~Replicates(Decide27(n, hs, {}, {}))
-e\* a check "replicates" when it hands the replicator a task with at least one candidate node. (With overlapping
-\* rules the code as found keeps calling the replicator with an EMPTY candidate list: a holder remembered from
-\* an earlier rule does not lower the shortage of a later rule - a phantom shortage that copies nothing.)
-Replicates(d) == \E k \in 1..Len(d.tasks) : Len(d.tasks[k].nodes) > 0
-Quiet(hs) == \A n \in hs : LET d == Decide27(n, hs, {}, {}) IN ~Replicates(d) /\ d.del = "none"
-NoTasks(hs) == \A n \in hs : ~Replicates(Decide27(n, hs, {}, {}))
-n\* a check "replicates" when it hands the replicator a task with at least one candidate node. (With overlapping
-\* rules the code as found keeps calling the replicator with an EMPTY candidate list: a holder remembered from
-\* an earlier rule does not lower the shortage of a later rule - a phantom shortage that copies nothing.)
-Replicates(d) == \E k \in 1..Len(d.tasks) : Len(d.tasks[k].nodes) > 0
-Quiet(hs) == \A n \in hs : LET d == Decide27(n, hs, {}, {}) IN ~Replicates(d) /\ d.del = "none"
-NoTasks(hs) == \A n \in hs : ~Replicates(Decide27(n, hs, {}, {}))
-d\* a check "replicates" when it hands the replicator a task with at least one candidate node. (With overlapping
-\* rules the code as found keeps calling the replicator with an EMPTY candidate list: a holder remembered from
-\* an earlier rule does not lower the shortage of a later rule - a phantom shortage that copies nothing.)
-Replicates(d) == \E k \in 1..Len(d.tasks) : Len(d.tasks[k].nodes) > 0
-Quiet(hs) == \A n \in hs : LET d == Decide27(n, hs, {}, {}) IN ~Replicates(d) /\ d.del = "none"
-NoTasks(hs) == \A n \in hs : ~Replicates(Decide27(n, hs, {}, {}))
-e\* a check "replicates" when it hands the replicator a task with at least one candidate node. (With overlapping
-\* rules the code as found keeps calling the replicator with an EMPTY candidate list: a holder remembered from
-\* an earlier rule does not lower the shortage of a later rule - a phantom shortage that copies nothing.)
-Replicates(d) == \E k \in 1..Len(d.tasks) : Len(d.tasks[k].nodes) > 0
-Quiet(hs) == \A n \in hs : LET d == Decide27(n, hs, {}, {}) IN ~Replicates(d) /\ d.del = "none"
-NoTasks(hs) == \A n \in hs : ~Replicates(Decide27(n, hs, {}, {}))
-n\* a check "replicates" when it hands the replicator a task with at least one candidate node. (With overlapping
-\* rules the code as found keeps calling the replicator with an EMPTY candidate list: a holder remembered from
-\* an earlier rule does not lower the shortage of a later rule - a phantom shortage that copies nothing.)
-Replicates(d) == \E k \in 1..Len(d.tasks) : Len(d.tasks[k].nodes) > 0
-Quiet(hs) == \A n \in hs : LET d == Decide27(n, hs, {}, {}) IN ~Replicates(d) /\ d.del = "none"
-NoTasks(hs) == \A n \in hs : ~Replicates(Decide27(n, hs, {}, {}))
-t\* a check "replicates" when it hands the replicator a task with at least one candidate node. (With overlapping
-\* rules the code as found keeps calling the replicator with an EMPTY candidate list: a holder remembered from
-\* an earlier rule does not lower the shortage of a later rule - a phantom shortage that copies nothing.)
-Replicates(d) == \E k \in 1..Len(d.tasks) : Len(d.tasks[k].nodes) > 0
-Quiet(hs) == \A n \in hs : LET d == Decide27(n, hs, {}, {}) IN ~Replicates(d) /\ d.del = "none"
-NoTasks(hs) == \A n \in hs : ~Replicates(Decide27(n, hs, {}, {}))
-)\* a check "replicates" when it hands the replicator a task with at least one candidate node. (With overlapping
-\* rules the code as found keeps calling the replicator with an EMPTY candidate list: a holder remembered from
-\* an earlier rule does not lower the shortage of a later rule - a phantom shortage that copies nothing.)
-Replicates(d) == \E k \in 1..Len(d.tasks) : Len(d.tasks[k].nodes) > 0
-Quiet(hs) == \A n \in hs : LET d == Decide27(n, hs, {}, {}) IN ~Replicates(d) /\ d.del = "none"
-NoTasks(hs) == \A n \in hs : ~Replicates(Decide27(n, hs, {}, {}))
-,\* a check "replicates" when it hands the replicator a task with at least one candidate node. (With overlapping
-\* rules the code as found keeps calling the replicator with an EMPTY candidate list: a holder remembered from
-\* an earlier rule does not lower the shortage of a later rule - a phantom shortage that copies nothing.)
-Replicates(d) == \E k \in 1..Len(d.tasks) : Len(d.tasks[k].nodes) > 0
-Quiet(hs) == \A n \in hs : LET d == Decide27(n, hs, {}, {}) IN ~Replicates(d) /\ d.del = "none"
-NoTasks(hs) == \A n \in hs : ~Replicates(Decide27(n, hs, {}, {}))
- \* a check "replicates" when it hands the replicator a task with at least one candidate node. (With overlapping
-\* rules the code as found keeps calling the replicator with an EMPTY candidate list: a holder remembered from
-\* an earlier rule does not lower the shortage of a later rule - a phantom shortage that copies nothing.)
-Replicates(d) == \E k \in 1..Len(d.tasks) : Len(d.tasks[k].nodes) > 0
-Quiet(hs) == \A n \in hs : LET d == Decide27(n, hs, {}, {}) IN ~Replicates(d) /\ d.del = "none"
-NoTasks(hs) == \A n \in hs : ~Replicates(Decide27(n, hs, {}, {}))
-a\* a check "replicates" when it hands the replicator a task with at least one candidate node. (With overlapping
-\* rules the code as found keeps calling the replicator with an EMPTY candidate list: a holder remembered from
-\* an earlier rule does not lower the shortage of a later rule - a phantom shortage that copies nothing.)
-Replicates(d) == \E k \in 1..Len(d.tasks) : Len(d.tasks[k].nodes) > 0
-Quiet(hs) == \A n \in hs : LET d == Decide27(n, hs, {}, {}) IN ~Replicates(d) /\ d.del = "none"
-NoTasks(hs) == \A n \in hs : ~Replicates(Decide27(n, hs, {}, {}))
- \* a check "replicates" when it hands the replicator a task with at least one candidate node. (With overlapping
-\* rules the code as found keeps calling the replicator with an EMPTY candidate list: a holder remembered from
-\* an earlier rule does not lower the shortage of a later rule - a phantom shortage that copies nothing.)
-Replicates(d) == \E k \in 1..Len(d.tasks) : Len(d.tasks[k].nodes) > 0
-Quiet(hs) == \A n \in hs : LET d == Decide27(n, hs, {}, {}) IN ~Replicates(d) /\ d.del = "none"
-NoTasks(hs) == \A n \in hs : ~Replicates(Decide27(n, hs, {}, {}))
-p\* a check "replicates" when it hands the replicator a task with at least one candidate node. (With overlapping
-\* rules the code as found keeps calling the replicator with an EMPTY candidate list: a holder remembered from
-\* an earlier rule does not lower the shortage of a later rule - a phantom shortage that copies nothing.)
-Replicates(d) == \E k \in 1..Len(d.tasks) : Len(d.tasks[k].nodes) > 0
-Quiet(hs) == \A n \in hs : LET d == Decide27(n, hs, {}, {}) IN ~Replicates(d) /\ d.del = "none"
-NoTasks(hs) == \A n \in hs : ~Replicates(Decide27(n, hs, {}, {}))
-o\* a check "replicates" when it hands the replicator a task with at least one candidate node. (With overlapping
-\* rules the code as found keeps calling the replicator with an EMPTY candidate list: a holder remembered from
-\* an earlier rule does not lower the shortage of a later rule - a phantom shortage that copies nothing.)
-Replicates(d) == \E k \in 1..Len(d.tasks) : Len(d.tasks[k].nodes) > 0
-Quiet(hs) == \A n \in hs : LET d == Decide27(n, hs, {}, {}) IN ~Replicates(d) /\ d.del = "none"
-NoTasks(hs) == \A n \in hs : ~Replicates(Decide27(n, hs, {}, {}))
-l\* a check "replicates" when it hands the replicator a task with at least one candidate node. (With overlapping
-\* rules the code as found keeps calling the replicator with an EMPTY candidate list: a holder remembered from
-\* an earlier rule does not lower the shortage of a later rule - a phantom shortage that copies nothing.)
-Replicates(d) == \E k \in 1..Len(d.tasks) : Len(d.tasks[k].nodes) > 0
-Quiet(hs) == \A n \in hs : LET d == Decide27(n, hs, {}, {}) IN ~Replicates(d) /\ d.del = "none"
-NoTasks(hs) == \A n \in hs : ~Replicates(Decide27(n, hs, {}, {}))
-i\* a check "replicates" when it hands the replicator a task with at least one candidate node. (With overlapping
-\* rules the code as found keeps calling the replicator with an EMPTY candidate list: a holder remembered from
-\* an earlier rule does not lower the shortage of a later rule - a phantom shortage that copies nothing.)
-Replicates(d) == \E k \in 1..Len(d.tasks) : Len(d.tasks[k].nodes) > 0
-Quiet(hs) == \A n \in hs : LET d == Decide27(n, hs, {}, {}) IN ~Replicates(d) /\ d.del = "none"
-NoTasks(hs) == \A n \in hs : ~Replicates(Decide27(n, hs, {}, {}))
-c\* a check "replicates" when it hands the replicator a task with at least one candidate node. (With overlapping
-\* rules the code as found keeps calling the replicator with an EMPTY candidate list: a holder remembered from
-\* an earlier rule does not lower the shortage of a later rule - a phantom shortage that copies nothing.)
-Replicates(d) == \E k \in 1..Len(d.tasks) : Len(d.tasks[k].nodes) > 0
-Quiet(hs) == \A n \in hs : LET d == Decide27(n, hs, {}, {}) IN ~Replicates(d) /\ d.del = "none"
-NoTasks(hs) == \A n \in hs : ~Replicates(Decide27(n, hs, {}, {}))
-y\* a check "replicates" when it hands the replicator a task with at least one candidate node. (With overlapping
-\* rules the code as found keeps calling the replicator with an EMPTY candidate list: a holder remembered from
-\* an earlier rule does not lower the shortage of a later rule - a phantom shortage that copies nothing.)
-Replicates(d) == \E k \in 1..Len(d.tasks) : Len(d.tasks[k].nodes) > 0
-Quiet(hs) == \A n \in hs : LET d == Decide27(n, hs, {}, {}) IN ~Replicates(d) /\ d.del = "none"
-NoTasks(hs) == \A n \in hs : ~Replicates(Decide27(n, hs, {}, {}))
- \* a check "replicates" when it hands the replicator a task with at least one candidate node. (With overlapping
-\* rules the code as found keeps calling the replicator with an EMPTY candidate list: a holder remembered from
-\* an earlier rule does not lower the shortage of a later rule - a phantom shortage that copies nothing.)
-Replicates(d) == \E k \in 1..Len(d.tasks) : Len(d.tasks[k].nodes) > 0
-Quiet(hs) == \A n \in hs : LET d == Decide27(n, hs, {}, {}) IN ~Replicates(d) /\ d.del = "none"
-NoTasks(hs) == \A n \in hs : ~Replicates(Decide27(n, hs, {}, {}))
-o\* a check "replicates" when it hands the replicator a task with at least one candidate node. (With overlapping
-\* rules the code as found keeps calling the replicator with an EMPTY candidate list: a holder remembered from
-\* an earlier rule does not lower the shortage of a later rule - a phantom shortage that copies nothing.)
-Replicates(d) == \E k \in 1..Len(d.tasks) : Len(d.tasks[k].nodes) > 0
-Quiet(hs) == \A n \in hs : LET d == Decide27(n, hs, {}, {}) IN ~Replicates(d) /\ d.del = "none"
-NoTasks(hs) == \A n \in hs : ~Replicates(Decide27(n, hs, {}, {}))
-f\* a check "replicates" when it hands the replicator a task with at least one candidate node. (With overlapping
-\* rules the code as found keeps calling the replicator with an EMPTY candidate list: a holder remembered from
-\* an earlier rule does not lower the shortage of a later rule - a phantom shortage that copies nothing.)
-Replicates(d) == \E k \in 1..Len(d.tasks) : Len(d.tasks[k].nodes) > 0
-Quiet(hs) == \A n \in hs : LET d == Decide27(n, hs, {}, {}) IN ~Replicates(d) /\ d.del = "none"
-NoTasks(hs) == \A n \in hs : ~Replicates(Decide27(n, hs, {}, {}))
- \* a check "replicates" when it hands the replicator a task with at least one candidate node. (With overlapping
-\* rules the code as found keeps calling the replicator with an EMPTY candidate list: a holder remembered from
-\* an earlier rule does not lower the shortage of a later rule - a phantom shortage that copies nothing.)
-Replicates(d) == \E k \in 1..Len(d.tasks) : Len(d.tasks[k].nodes) > 0
-Quiet(hs) == \A n \in hs : LET d == Decide27(n, hs, {}, {}) IN ~Replicates(d) /\ d.del = "none"
-NoTasks(hs) == \A n \in hs : ~Replicates(Decide27(n, hs, {}, {}))
-o\* a check "replicates" when it hands the replicator a task with at least one candidate node. (With overlapping
-\* rules the code as found keeps calling the replicator with an EMPTY candidate list: a holder remembered from
-\* an earlier rule does not lower the shortage of a later rule - a phantom shortage that copies nothing.)
-Replicates(d) == \E k \in 1..Len(d.tasks) : Len(d.tasks[k].nodes) > 0
-Quiet(hs) == \A n \in hs : LET d == Decide27(n, hs, {}, {}) IN ~Replicates(d) /\ d.del = "none"
-NoTasks(hs) == \A n \in hs : ~Replicates(Decide27(n, hs, {}, {}))
-n\* a check "replicates" when it hands the replicator a task with at least one candidate node. (With overlapping
-\* rules the code as found keeps calling the replicator with an EMPTY candidate list: a holder remembered from
-\* an earlier rule does not lower the shortage of a later rule - a phantom shortage that copies nothing.)
-Replicates(d) == \E k \in 1..Len(d.tasks) : Len(d.tasks[k].nodes) > 0
-Quiet(hs) == \A n \in hs : LET d == Decide27(n, hs, {}, {}) IN ~Replicates(d) /\ d.del = "none"
-NoTasks(hs) == \A n \in hs : ~Replicates(Decide27(n, hs, {}, {}))
-e\* a check "replicates" when it hands the replicator a task with at least one candidate node. (With overlapping
-\* rules the code as found keeps calling the replicator with an EMPTY candidate list: a holder remembered from
-\* an earlier rule does not lower the shortage of a later rule - a phantom shortage that copies nothing.)
-Replicates(d) == \E k \in 1..Len(d.tasks) : Len(d.tasks[k].nodes) > 0
-Quiet(hs) == \A n \in hs : LET d == Decide27(n, hs, {}, {}) IN ~Replicates(d) /\ d.del = "none"
-NoTasks(hs) == \A n \in hs : ~Replicates(Decide27(n, hs, {}, {}))
- \* a check "replicates" when it hands the replicator a task with at least one candidate node. (With overlapping
-\* rules the code as found keeps calling the replicator with an EMPTY candidate list: a holder remembered from
-\* an earlier rule does not lower the shortage of a later rule - a phantom shortage that copies nothing.)
-Replicates(d) == \E k \in 1..Len(d.tasks) : Len(d.tasks[k].nodes) > 0
-Quiet(hs) == \A n \in hs : LET d == Decide27(n, hs, {}, {}) IN ~Replicates(d) /\ d.del = "none"
-NoTasks(hs) == \A n \in hs : ~Replicates(Decide27(n, hs, {}, {}))
-o\* a check "replicates" when it hands the replicator a task with at least one candidate node. (With overlapping
-\* rules the code as found keeps calling the replicator with an EMPTY candidate list: a holder remembered from
-\* an earlier rule does not lower the shortage of a later rule - a phantom shortage that copies nothing.)
-Replicates(d) == \E k \in 1..Len(d.tasks) : Len(d.tasks[k].nodes) > 0
-Quiet(hs) == \A n \in hs : LET d == Decide27(n, hs, {}, {}) IN ~Replicates(d) /\ d.del = "none"
-NoTasks(hs) == \A n \in hs : ~Replicates(Decide27(n, hs, {}, {}))
-r\* a check "replicates" when it hands the replicator a task with at least one candidate node. (With overlapping
-\* rules the code as found keeps calling the replicator with an EMPTY candidate list: a holder remembered from
-\* an earlier rule does not lower the shortage of a later rule - a phantom shortage that copies nothing.)
-Replicates(d) == \E k \in 1..Len(d.tasks) : Len(d.tasks[k].nodes) > 0
-Quiet(hs) == \A n \in hs : LET d == Decide27(n, hs, {}, {}) IN ~Replicates(d) /\ d.del = "none"
-NoTasks(hs) == \A n \in hs : ~Replicates(Decide27(n, hs, {}, {}))
- \* a check "replicates" when it hands the replicator a task with at least one candidate node. (With overlapping
-\* rules the code as found keeps calling the replicator with an EMPTY candidate list: a holder remembered from
-\* an earlier rule does not lower the shortage of a later rule - a phantom shortage that copies nothing.)
-Replicates(d) == \E k \in 1..Len(d.tasks) : Len(d.tasks[k].nodes) > 0
-Quiet(hs) == \A n \in hs : LET d == Decide27(n, hs, {}, {}) IN ~Replicates(d) /\ d.del = "none"
-NoTasks(hs) == \A n \in hs : ~Replicates(Decide27(n, hs, {}, {}))
-m\* a check "replicates" when it hands the replicator a task with at least one candidate node. (With overlapping
-\* rules the code as found keeps calling the replicator with an EMPTY candidate list: a holder remembered from
-\* an earlier rule does not lower the shortage of a later rule - a phantom shortage that copies nothing.)
-Replicates(d) == \E k \in 1..Len(d.tasks) : Len(d.tasks[k].nodes) > 0
-Quiet(hs) == \A n \in hs : LET d == Decide27(n, hs, {}, {}) IN ~Replicates(d) /\ d.del = "none"
-NoTasks(hs) == \A n \in hs : ~Replicates(Decide27(n, hs, {}, {}))
-o\* a check "replicates" when it hands the replicator a task with at least one candidate node. (With overlapping
-\* rules the code as found keeps calling the replicator with an EMPTY candidate list: a holder remembered from
-\* an earlier rule does not lower the shortage of a later rule - a phantom shortage that copies nothing.)
-Replicates(d) == \E k \in 1..Len(d.tasks) : Len(d.tasks[k].nodes) > 0
-Quiet(hs) == \A n \in hs : LET d == Decide27(n, hs, {}, {}) IN ~Replicates(d) /\ d.del = "none"
-NoTasks(hs) == \A n \in hs : ~Replicates(Decide27(n, hs, {}, {}))
-r\* a check "replicates" when it hands the replicator a task with at least one candidate node. (With overlapping
-\* rules the code as found keeps calling the replicator with an EMPTY candidate list: a holder remembered from
-\* an earlier rule does not lower the shortage of a later rule - a phantom shortage that copies nothing.)
-Replicates(d) == \E k \in 1..Len(d.tasks) : Len(d.tasks[k].nodes) > 0
-Quiet(hs) == \A n \in hs : LET d == Decide27(n, hs, {}, {}) IN ~Replicates(d) /\ d.del = "none"
-NoTasks(hs) == \A n \in hs : ~Replicates(Decide27(n, hs, {}, {}))
-e\* a check "replicates" when it hands the replicator a task with at least one candidate node. (With overlapping
-\* rules the code as found keeps calling the replicator with an EMPTY candidate list: a holder remembered from
-\* an earlier rule does not lower the shortage of a later rule - a phantom shortage that copies nothing.)
-Replicates(d) == \E k \in 1..Len(d.tasks) : Len(d.tasks[k].nodes) > 0
-Quiet(hs) == \A n \in hs : LET d == Decide27(n, hs, {}, {}) IN ~Replicates(d) /\ d.del = "none"
-NoTasks(hs) == \A n \in hs : ~Replicates(Decide27(n, hs, {}, {}))
- \* a check "replicates" when it hands the replicator a task with at least one candidate node. (With overlapping
-\* rules the code as found keeps calling the replicator with an EMPTY candidate list: a holder remembered from
-\* an earlier rule does not lower the shortage of a later rule - a phantom shortage that copies nothing.)
-Replicates(d) == \E k \in 1..Len(d.tasks) : Len(d.tasks[k].nodes) > 0
-Quiet(hs) == \A n \in hs : LET d == Decide27(n, hs, {}, {}) IN ~Replicates(d) /\ d.del = "none"
-NoTasks(hs) == \A n \in hs : ~Replicates(Decide27(n, hs, {}, {}))
-R\* a check "replicates" when it hands the replicator a task with at least one candidate node. (With overlapping
-\* rules the code as found keeps calling the replicator with an EMPTY candidate list: a holder remembered from
-\* an earlier rule does not lower the shortage of a later rule - a phantom shortage that copies nothing.)
-Replicates(d) == \E k \in 1..Len(d.tasks) : Len(d.tasks[k].nodes) > 0
-Quiet(hs) == \A n \in hs : LET d == Decide27(n, hs, {}, {}) IN ~Replicates(d) /\ d.del = "none"
-NoTasks(hs) == \A n \in hs : ~Replicates(Decide27(n, hs, {}, {}))
-E\* a check "replicates" when it hands the replicator a task with at least one candidate node. (With overlapping
-\* rules the code as found keeps calling the replicator with an EMPTY candidate list: a holder remembered from
-\* an earlier rule does not lower the shortage of a later rule - a phantom shortage that copies nothing.)
-Replicates(d) == \E k \in 1..Len(d.tasks) : Len(d.tasks[k].nodes) > 0
-Quiet(hs) == \A n \in hs : LET d == Decide27(n, hs, {}, {}) IN ~Replicates(d) /\ d.del = "none"
-NoTasks(hs) == \A n \in hs : ~Replicates(Decide27(n, hs, {}, {}))
-P\* a check "replicates" when it hands the replicator a task with at least one candidate node. (With overlapping
-\* rules the code as found keeps calling the replicator with an EMPTY candidate list: a holder remembered from
-\* an earlier rule does not lower the shortage of a later rule - a phantom shortage that copies nothing.)
-Replicates(d) == \E k \in 1..Len(d.tasks) : Len(d.tasks[k].nodes) > 0
-Quiet(hs) == \A n \in hs : LET d == Decide27(n, hs, {}, {}) IN ~Replicates(d) /\ d.del = "none"
-NoTasks(hs) == \A n \in hs : ~Replicates(Decide27(n, hs, {}, {}))
- \* a check "replicates" when it hands the replicator a task with at least one candidate node. (With overlapping
-\* rules the code as found keeps calling the replicator with an EMPTY candidate list: a holder remembered from
-\* an earlier rule does not lower the shortage of a later rule - a phantom shortage that copies nothing.)
-Replicates(d) == \E k \in 1..Len(d.tasks) : Len(d.tasks[k].nodes) > 0
-Quiet(hs) == \A n \in hs : LET d == Decide27(n, hs, {}, {}) IN ~Replicates(d) /\ d.del = "none"
-NoTasks(hs) == \A n \in hs : ~Replicates(Decide27(n, hs, {}, {}))
-r\* a check "replicates" when it hands the replicator a task with at least one candidate node. (With overlapping
-\* rules the code as found keeps calling the replicator with an EMPTY candidate list: a holder remembered from
-\* an earlier rule does not lower the shortage of a later rule - a phantom shortage that copies nothing.)
-Replicates(d) == \E k \in 1..Len(d.tasks) : Len(d.tasks[k].nodes) > 0
-Quiet(hs) == \A n \in hs : LET d == Decide27(n, hs, {}, {}) IN ~Replicates(d) /\ d.del = "none"
-NoTasks(hs) == \A n \in hs : ~Replicates(Decide27(n, hs, {}, {}))
-u\* a check "replicates" when it hands the replicator a task with at least one candidate node. (With overlapping
-\* rules the code as found keeps calling the replicator with an EMPTY candidate list: a holder remembered from
-\* an earlier rule does not lower the shortage of a later rule - a phantom shortage that copies nothing.)
-Replicates(d) == \E k \in 1..Len(d.tasks) : Len(d.tasks[k].nodes) > 0
-Quiet(hs) == \A n \in hs : LET d == Decide27(n, hs, {}, {}) IN ~Replicates(d) /\ d.del = "none"
-NoTasks(hs) == \A n \in hs : ~Replicates(Decide27(n, hs, {}, {}))
-l\* a check "replicates" when it hands the replicator a task with at least one candidate node. (With overlapping
-\* rules the code as found keeps calling the replicator with an EMPTY candidate list: a holder remembered from
-\* an earlier rule does not lower the shortage of a later rule - a phantom shortage that copies nothing.)
-Replicates(d) == \E k \in 1..Len(d.tasks) : Len(d.tasks[k].nodes) > 0
-Quiet(hs) == \A n \in hs : LET d == Decide27(n, hs, {}, {}) IN ~Replicates(d) /\ d.del = "none"
-NoTasks(hs) == \A n \in hs : ~Replicates(Decide27(n, hs, {}, {}))
-e\* a check "replicates" when it hands the replicator a task with at least one candidate node. (With overlapping
-\* rules the code as found keeps calling the replicator with an EMPTY candidate list: a holder remembered from
-\* an earlier rule does not lower the shortage of a later rule - a phantom shortage that copies nothing.)
-Replicates(d) == \E k \in 1..Len(d.tasks) : Len(d.tasks[k].nodes) > 0
-Quiet(hs) == \A n \in hs : LET d == Decide27(n, hs, {}, {}) IN ~Replicates(d) /\ d.del = "none"
-NoTasks(hs) == \A n \in hs : ~Replicates(Decide27(n, hs, {}, {}))
-s\* a check "replicates" when it hands the replicator a task with at least one candidate node. (With overlapping
-\* rules the code as found keeps calling the replicator with an EMPTY candidate list: a holder remembered from
-\* an earlier rule does not lower the shortage of a later rule - a phantom shortage that copies nothing.)
-Replicates(d) == \E k \in 1..Len(d.tasks) : Len(d.tasks[k].nodes) > 0
-Quiet(hs) == \A n \in hs : LET d == Decide27(n, hs, {}, {}) IN ~Replicates(d) /\ d.del = "none"
-NoTasks(hs) == \A n \in hs : ~Replicates(Decide27(n, hs, {}, {}))
-
-\* a check "replicates" when it hands the replicator a task with at least one candidate node. (With overlapping
-\* rules the code as found keeps calling the replicator with an EMPTY candidate list: a holder remembered from
-\* an earlier rule does not lower the shortage of a later rule - a phantom shortage that copies nothing.)
-Replicates(d) == \E k \in 1..Len(d.tasks) : Len(d.tasks[k].nodes) > 0
-Quiet(hs) == \A n \in hs : LET d == Decide27(n, hs, {}, {}) IN ~Replicates(d) /\ d.del = "none"
-NoTasks(hs) == \A n \in hs : ~Replicates(Decide27(n, hs, {}, {}))
- \* a check "replicates" when it hands the replicator a task with at least one candidate node. (With overlapping
-\* rules the code as found keeps calling the replicator with an EMPTY candidate list: a holder remembered from
-\* an earlier rule does not lower the shortage of a later rule - a phantom shortage that copies nothing.)
-Replicates(d) == \E k \in 1..Len(d.tasks) : Len(d.tasks[k].nodes) > 0
-Quiet(hs) == \A n \in hs : LET d == Decide27(n, hs, {}, {}) IN ~Replicates(d) /\ d.del = "none"
-NoTasks(hs) == \A n \in hs : ~Replicates(Decide27(n, hs, {}, {}))
- \* a check "replicates" when it hands the replicator a task with at least one candidate node. (With overlapping
-\* rules the code as found keeps calling the replicator with an EMPTY candidate list: a holder remembered from
-\* an earlier rule does not lower the shortage of a later rule - a phantom shortage that copies nothing.)
-Replicates(d) == \E k \in 1..Len(d.tasks) : Len(d.tasks[k].nodes) > 0
-Quiet(hs) == \A n \in hs : LET d == Decide27(n, hs, {}, {}) IN ~Replicates(d) /\ d.del = "none"
-NoTasks(hs) == \A n \in hs : ~Replicates(Decide27(n, hs, {}, {}))
- \* a check "replicates" when it hands the replicator a task with at least one candidate node. (With overlapping
-\* rules the code as found keeps calling the replicator with an EMPTY candidate list: a holder remembered from
-\* an earlier rule does not lower the shortage of a later rule - a phantom shortage that copies nothing.)
-Replicates(d) == \E k \in 1..Len(d.tasks) : Len(d.tasks[k].nodes) > 0
-Quiet(hs) == \A n \in hs : LET d == Decide27(n, hs, {}, {}) IN ~Replicates(d) /\ d.del = "none"
-NoTasks(hs) == \A n \in hs : ~Replicates(Decide27(n, hs, {}, {}))
-(\* a check "replicates" when it hands the replicator a task with at least one candidate node. (With overlapping
-\* rules the code as found keeps calling the replicator with an EMPTY candidate list: a holder remembered from
-\* an earlier rule does not lower the shortage of a later rule - a phantom shortage that copies nothing.)
-Replicates(d) == \E k \in 1..Len(d.tasks) : Len(d.tasks[k].nodes) > 0
-Quiet(hs) == \A n \in hs : LET d == Decide27(n, hs, {}, {}) IN ~Replicates(d) /\ d.del = "none"
-NoTasks(hs) == \A n \in hs : ~Replicates(Decide27(n, hs, {}, {}))
-`\* a check "replicates" when it hands the replicator a task with at least one candidate node. (With overlapping
-\* rules the code as found keeps calling the replicator with an EMPTY candidate list: a holder remembered from
-\* an earlier rule does not lower the shortage of a later rule - a phantom shortage that copies nothing.)
-Replicates(d) == \E k \in 1..Len(d.tasks) : Len(d.tasks[k].nodes) > 0
-Quiet(hs) == \A n \in hs : LET d == Decide27(n, hs, {}, {}) IN ~Replicates(d) /\ d.del = "none"
-NoTasks(hs) == \A n \in hs : ~Replicates(Decide27(n, hs, {}, {}))
-r\* a check "replicates" when it hands the replicator a task with at least one candidate node. (With overlapping
-\* rules the code as found keeps calling the replicator with an EMPTY candidate list: a holder remembered from
-\* an earlier rule does not lower the shortage of a later rule - a phantom shortage that copies nothing.)
-Replicates(d) == \E k \in 1..Len(d.tasks) : Len(d.tasks[k].nodes) > 0
-Quiet(hs) == \A n \in hs : LET d == Decide27(n, hs, {}, {}) IN ~Replicates(d) /\ d.del = "none"
-NoTasks(hs) == \A n \in hs : ~Replicates(Decide27(n, hs, {}, {}))
-u\* a check "replicates" when it hands the replicator a task with at least one candidate node. (With overlapping
-\* rules the code as found keeps calling the replicator with an EMPTY candidate list: a holder remembered from
-\* an earlier rule does not lower the shortage of a later rule - a phantom shortage that copies nothing.)
-Replicates(d) == \E k \in 1..Len(d.tasks) : Len(d.tasks[k].nodes) > 0
-Quiet(hs) == \A n \in hs : LET d == Decide27(n, hs, {}, {}) IN ~Replicates(d) /\ d.del = "none"
-NoTasks(hs) == \A n \in hs : ~Replicates(Decide27(n, hs, {}, {}))
-l\* a check "replicates" when it hands the replicator a task with at least one candidate node. (With overlapping
-\* rules the code as found keeps calling the replicator with an EMPTY candidate list: a holder remembered from
-\* an earlier rule does not lower the shortage of a later rule - a phantom shortage that copies nothing.)
-Replicates(d) == \E k \in 1..Len(d.tasks) : Len(d.tasks[k].nodes) > 0
-Quiet(hs) == \A n \in hs : LET d == Decide27(n, hs, {}, {}) IN ~Replicates(d) /\ d.del = "none"
-NoTasks(hs) == \A n \in hs : ~Replicates(Decide27(n, hs, {}, {}))
-e\* a check "replicates" when it hands the replicator a task with at least one candidate node. (With overlapping
-\* rules the code as found keeps calling the replicator with an EMPTY candidate list: a holder remembered from
-\* an earlier rule does not lower the shortage of a later rule - a phantom shortage that copies nothing.)
-Replicates(d) == \E k \in 1..Len(d.tasks) : Len(d.tasks[k].nodes) > 0
-Quiet(hs) == \A n \in hs : LET d == Decide27(n, hs, {}, {}) IN ~Replicates(d) /\ d.del = "none"
-NoTasks(hs) == \A n \in hs : ~Replicates(Decide27(n, hs, {}, {}))
-s\* a check "replicates" when it hands the replicator a task with at least one candidate node. (With overlapping
-\* rules the code as found keeps calling the replicator with an EMPTY candidate list: a holder remembered from
-\* an earlier rule does not lower the shortage of a later rule - a phantom shortage that copies nothing.)
-Replicates(d) == \E k \in 1..Len(d.tasks) : Len(d.tasks[k].nodes) > 0
-Quiet(hs) == \A n \in hs : LET d == Decide27(n, hs, {}, {}) IN ~Replicates(d) /\ d.del = "none"
-NoTasks(hs) == \A n \in hs : ~Replicates(Decide27(n, hs, {}, {}))
-`\* a check "replicates" when it hands the replicator a task with at least one candidate node. (With overlapping
-\* rules the code as found keeps calling the replicator with an EMPTY candidate list: a holder remembered from
-\* an earlier rule does not lower the shortage of a later rule - a phantom shortage that copies nothing.)
-Replicates(d) == \E k \in 1..Len(d.tasks) : Len(d.tasks[k].nodes) > 0
-Quiet(hs) == \A n \in hs : LET d == Decide27(n, hs, {}, {}) IN ~Replicates(d) /\ d.del = "none"
-NoTasks(hs) == \A n \in hs : ~Replicates(Decide27(n, hs, {}, {}))
-:\* a check "replicates" when it hands the replicator a task with at least one candidate node. (With overlapping
-\* rules the code as found keeps calling the replicator with an EMPTY candidate list: a holder remembered from
-\* an earlier rule does not lower the shortage of a later rule - a phantom shortage that copies nothing.)
-Replicates(d) == \E k \in 1..Len(d.tasks) : Len(d.tasks[k].nodes) > 0
-Quiet(hs) == \A n \in hs : LET d == Decide27(n, hs, {}, {}) IN ~Replicates(d) /\ d.del = "none"
-NoTasks(hs) == \A n \in hs : ~Replicates(Decide27(n, hs, {}, {}))
- \* a check "replicates" when it hands the replicator a task with at least one candidate node. (With overlapping
-\* rules the code as found keeps calling the replicator with an EMPTY candidate list: a holder remembered from
-\* an earlier rule does not lower the shortage of a later rule - a phantom shortage that copies nothing.)
-Replicates(d) == \E k \in 1..Len(d.tasks) : Len(d.tasks[k].nodes) > 0
-Quiet(hs) == \A n \in hs : LET d == Decide27(n, hs, {}, {}) IN ~Replicates(d) /\ d.del = "none"
-NoTasks(hs) == \A n \in hs : ~Replicates(Decide27(n, hs, {}, {}))
-s\* a check "replicates" when it hands the replicator a task with at least one candidate node. (With overlapping
-\* rules the code as found keeps calling the replicator with an EMPTY candidate list: a holder remembered from
-\* an earlier rule does not lower the shortage of a later rule - a phantom shortage that copies nothing.)
-Replicates(d) == \E k \in 1..Len(d.tasks) : Len(d.tasks[k].nodes) > 0
-Quiet(hs) == \A n \in hs : LET d == Decide27(n, hs, {}, {}) IN ~Replicates(d) /\ d.del = "none"
-NoTasks(hs) == \A n \in hs : ~Replicates(Decide27(n, hs, {}, {}))
-e\* a check "replicates" when it hands the replicator a task with at least one candidate node. (With overlapping
-\* rules the code as found keeps calling the replicator with an EMPTY candidate list: a holder remembered from
-\* an earlier rule does not lower the shortage of a later rule - a phantom shortage that copies nothing.)
-Replicates(d) == \E k \in 1..Len(d.tasks) : Len(d.tasks[k].nodes) > 0
-Quiet(hs) == \A n \in hs : LET d == Decide27(n, hs, {}, {}) IN ~Replicates(d) /\ d.del = "none"
-NoTasks(hs) == \A n \in hs : ~Replicates(Decide27(n, hs, {}, {}))
-q\* a check "replicates" when it hands the replicator a task with at least one candidate node. (With overlapping
-\* rules the code as found keeps calling the replicator with an EMPTY candidate list: a holder remembered from
-\* an earlier rule does not lower the shortage of a later rule - a phantom shortage that copies nothing.)
-Replicates(d) == \E k \in 1..Len(d.tasks) : Len(d.tasks[k].nodes) > 0
-Quiet(hs) == \A n \in hs : LET d == Decide27(n, hs, {}, {}) IN ~Replicates(d) /\ d.del = "none"
-NoTasks(hs) == \A n \in hs : ~Replicates(Decide27(n, hs, {}, {}))
-u\* a check "replicates" when it hands the replicator a task with at least one candidate node. (With overlapping
-\* rules the code as found keeps calling the replicator with an EMPTY candidate list: a holder remembered from
-\* an earlier rule does not lower the shortage of a later rule - a phantom shortage that copies nothing.)
-Replicates(d) == \E k \in 1..Len(d.tasks) : Len(d.tasks[k].nodes) > 0
-Quiet(hs) == \A n \in hs : LET d == Decide27(n, hs, {}, {}) IN ~Replicates(d) /\ d.del = "none"
-NoTasks(hs) == \A n \in hs : ~Replicates(Decide27(n, hs, {}, {}))
-e\* a check "replicates" when it hands the replicator a task with at least one candidate node. (With overlapping
-\* rules the code as found keeps calling the replicator with an EMPTY candidate list: a holder remembered from
-\* an earlier rule does not lower the shortage of a later rule - a phantom shortage that copies nothing.)
-Replicates(d) == \E k \in 1..Len(d.tasks) : Len(d.tasks[k].nodes) > 0
-Quiet(hs) == \A n \in hs : LET d == Decide27(n, hs, {}, {}) IN ~Replicates(d) /\ d.del = "none"
-NoTasks(hs) == \A n \in hs : ~Replicates(Decide27(n, hs, {}, {}))
-n\* a check "replicates" when it hands the replicator a task with at least one candidate node. (With overlapping
-\* rules the code as found keeps calling the replicator with an EMPTY candidate list: a holder remembered from
-\* an earlier rule does not lower the shortage of a later rule - a phantom shortage that copies nothing.)
-Replicates(d) == \E k \in 1..Len(d.tasks) : Len(d.tasks[k].nodes) > 0
-Quiet(hs) == \A n \in hs : LET d == Decide27(n, hs, {}, {}) IN ~Replicates(d) /\ d.del = "none"
-NoTasks(hs) == \A n \in hs : ~Replicates(Decide27(n, hs, {}, {}))
-c\* a check "replicates" when it hands the replicator a task with at least one candidate node. (With overlapping
-\* rules the code as found keeps calling the replicator with an EMPTY candidate list: a holder remembered from
-\* an earlier rule does not lower the shortage of a later rule - a phantom shortage that copies nothing.)
-Replicates(d) == \E k \in 1..Len(d.tasks) : Len(d.tasks[k].nodes) > 0
-Quiet(hs) == \A n \in hs : LET d == Decide27(n, hs, {}, {}) IN ~Replicates(d) /\ d.del = "none"
-NoTasks(hs) == \A n \in hs : ~Replicates(Decide27(n, hs, {}, {}))
-e\* a check "replicates" when it hands the replicator a task with at least one candidate node. (With overlapping
-\* rules the code as found keeps calling the replicator with an EMPTY candidate list: a holder remembered from
-\* an earlier rule does not lower the shortage of a later rule - a phantom shortage that copies nothing.)
-Replicates(d) == \E k \in 1..Len(d.tasks) : Len(d.tasks[k].nodes) > 0
-Quiet(hs) == \A n \in hs : LET d == Decide27(n, hs, {}, {}) IN ~Replicates(d) /\ d.del = "none"
-NoTasks(hs) == \A n \in hs : ~Replicates(Decide27(n, hs, {}, {}))
- \* a check "replicates" when it hands the replicator a task with at least one candidate node. (With overlapping
-\* rules the code as found keeps calling the replicator with an EMPTY candidate list: a holder remembered from
-\* an earlier rule does not lower the shortage of a later rule - a phantom shortage that copies nothing.)
-Replicates(d) == \E k \in 1..Len(d.tasks) : Len(d.tasks[k].nodes) > 0
-Quiet(hs) == \A n \in hs : LET d == Decide27(n, hs, {}, {}) IN ~Replicates(d) /\ d.del = "none"
-NoTasks(hs) == \A n \in hs : ~Replicates(Decide27(n, hs, {}, {}))
-o\* a check "replicates" when it hands the replicator a task with at least one candidate node. (With overlapping
-\* rules the code as found keeps calling the replicator with an EMPTY candidate list: a holder remembered from
-\* an earlier rule does not lower the shortage of a later rule - a phantom shortage that copies nothing.)
-Replicates(d) == \E k \in 1..Len(d.tasks) : Len(d.tasks[k].nodes) > 0
-Quiet(hs) == \A n \in hs : LET d == Decide27(n, hs, {}, {}) IN ~Replicates(d) /\ d.del = "none"
-NoTasks(hs) == \A n \in hs : ~Replicates(Decide27(n, hs, {}, {}))
-f\* a check "replicates" when it hands the replicator a task with at least one candidate node. (With overlapping
-\* rules the code as found keeps calling the replicator with an EMPTY candidate list: a holder remembered from
-\* an earlier rule does not lower the shortage of a later rule - a phantom shortage that copies nothing.)
-Replicates(d) == \E k \in 1..Len(d.tasks) : Len(d.tasks[k].nodes) > 0
-Quiet(hs) == \A n \in hs : LET d == Decide27(n, hs, {}, {}) IN ~Replicates(d) /\ d.del = "none"
-NoTasks(hs) == \A n \in hs : ~Replicates(Decide27(n, hs, {}, {}))
- \* a check "replicates" when it hands the replicator a task with at least one candidate node. (With overlapping
-\* rules the code as found keeps calling the replicator with an EMPTY candidate list: a holder remembered from
-\* an earlier rule does not lower the shortage of a later rule - a phantom shortage that copies nothing.)
-Replicates(d) == \E k \in 1..Len(d.tasks) : Len(d.tasks[k].nodes) > 0
-Quiet(hs) == \A n \in hs : LET d == Decide27(n, hs, {}, {}) IN ~Replicates(d) /\ d.del = "none"
-NoTasks(hs) == \A n \in hs : ~Replicates(Decide27(n, hs, {}, {}))
-[\* a check "replicates" when it hands the replicator a task with at least one candidate node. (With overlapping
-\* rules the code as found keeps calling the replicator with an EMPTY candidate list: a holder remembered from
-\* an earlier rule does not lower the shortage of a later rule - a phantom shortage that copies nothing.)
-Replicates(d) == \E k \in 1..Len(d.tasks) : Len(d.tasks[k].nodes) > 0
-Quiet(hs) == \A n \in hs : LET d == Decide27(n, hs, {}, {}) IN ~Replicates(d) /\ d.del = "none"
-NoTasks(hs) == \A n \in hs : ~Replicates(Decide27(n, hs, {}, {}))
-n\* a check "replicates" when it hands the replicator a task with at least one candidate node. (With overlapping
-\* rules the code as found keeps calling the replicator with an EMPTY candidate list: a holder remembered from
-\* an earlier rule does not lower the shortage of a later rule - a phantom shortage that copies nothing.)
-Replicates(d) == \E k \in 1..Len(d.tasks) : Len(d.tasks[k].nodes) > 0
-Quiet(hs) == \A n \in hs : LET d == Decide27(n, hs, {}, {}) IN ~Replicates(d) /\ d.del = "none"
-NoTasks(hs) == \A n \in hs : ~Replicates(Decide27(n, hs, {}, {}))
-o\* a check "replicates" when it hands the replicator a task with at least one candidate node. (With overlapping
-\* rules the code as found keeps calling the replicator with an EMPTY candidate list: a holder remembered from
-\* an earlier rule does not lower the shortage of a later rule - a phantom shortage that copies nothing.)
-Replicates(d) == \E k \in 1..Len(d.tasks) : Len(d.tasks[k].nodes) > 0
-Quiet(hs) == \A n \in hs : LET d == Decide27(n, hs, {}, {}) IN ~Replicates(d) /\ d.del = "none"
-NoTasks(hs) == \A n \in hs : ~Replicates(Decide27(n, hs, {}, {}))
-d\* a check "replicates" when it hands the replicator a task with at least one candidate node. (With overlapping
-\* rules the code as found keeps calling the replicator with an EMPTY candidate list: a holder remembered from
-\* an earlier rule does not lower the shortage of a later rule - a phantom shortage that copies nothing.)
-Replicates(d) == \E k \in 1..Len(d.tasks) : Len(d.tasks[k].nodes) > 0
-Quiet(hs) == \A n \in hs : LET d == Decide27(n, hs, {}, {}) IN ~Replicates(d) /\ d.del = "none"
-NoTasks(hs) == \A n \in hs : ~Replicates(Decide27(n, hs, {}, {}))
-e\* a check "replicates" when it hands the replicator a task with at least one candidate node. (With overlapping
-\* rules the code as found keeps calling the replicator with an EMPTY candidate list: a holder remembered from
-\* an earlier rule does not lower the shortage of a later rule - a phantom shortage that copies nothing.)
-Replicates(d) == \E k \in 1..Len(d.tasks) : Len(d.tasks[k].nodes) > 0
-Quiet(hs) == \A n \in hs : LET d == Decide27(n, hs, {}, {}) IN ~Replicates(d) /\ d.del = "none"
-NoTasks(hs) == \A n \in hs : ~Replicates(Decide27(n, hs, {}, {}))
-s\* a check "replicates" when it hands the replicator a task with at least one candidate node. (With overlapping
-\* rules the code as found keeps calling the replicator with an EMPTY candidate list: a holder remembered from
-\* an earlier rule does not lower the shortage of a later rule - a phantom shortage that copies nothing.)
-Replicates(d) == \E k \in 1..Len(d.tasks) : Len(d.tasks[k].nodes) > 0
-Quiet(hs) == \A n \in hs : LET d == Decide27(n, hs, {}, {}) IN ~Replicates(d) /\ d.del = "none"
-NoTasks(hs) == \A n \in hs : ~Replicates(Decide27(n, hs, {}, {}))
- \* a check "replicates" when it hands the replicator a task with at least one candidate node. (With overlapping
-\* rules the code as found keeps calling the replicator with an EMPTY candidate list: a holder remembered from
-\* an earlier rule does not lower the shortage of a later rule - a phantom shortage that copies nothing.)
-Replicates(d) == \E k \in 1..Len(d.tasks) : Len(d.tasks[k].nodes) > 0
-Quiet(hs) == \A n \in hs : LET d == Decide27(n, hs, {}, {}) IN ~Replicates(d) /\ d.del = "none"
-NoTasks(hs) == \A n \in hs : ~Replicates(Decide27(n, hs, {}, {}))
-|\* a check "replicates" when it hands the replicator a task with at least one candidate node. (With overlapping
-\* rules the code as found keeps calling the replicator with an EMPTY candidate list: a holder remembered from
-\* an earlier rule does not lower the shortage of a later rule - a phantom shortage that copies nothing.)
-Replicates(d) == \E k \in 1..Len(d.tasks) : Len(d.tasks[k].nodes) > 0
-Quiet(hs) == \A n \in hs : LET d == Decide27(n, hs, {}, {}) IN ~Replicates(d) /\ d.del = "none"
-NoTasks(hs) == \A n \in hs : ~Replicates(Decide27(n, hs, {}, {}))
--\* a check "replicates" when it hands the replicator a task with at least one candidate node. (With overlapping
-\* rules the code as found keeps calling the replicator with an EMPTY candidate list: a holder remembered from
-\* an earlier rule does not lower the shortage of a later rule - a phantom shortage that copies nothing.)
-Replicates(d) == \E k \in 1..Len(d.tasks) : Len(d.tasks[k].nodes) > 0
-Quiet(hs) == \A n \in hs : LET d == Decide27(n, hs, {}, {}) IN ~Replicates(d) /\ d.del = "none"
-NoTasks(hs) == \A n \in hs : ~Replicates(Decide27(n, hs, {}, {}))
->\* a check "replicates" when it hands the replicator a task with at least one candidate node. (With overlapping
-\* rules the code as found keeps calling the replicator with an EMPTY candidate list: a holder remembered from
-\* an earlier rule does not lower the shortage of a later rule - a phantom shortage that copies nothing.)
-Replicates(d) == \E k \in 1..Len(d.tasks) : Len(d.tasks[k].nodes) > 0
-Quiet(hs) == \A n \in hs : LET d == Decide27(n, hs, {}, {}) IN ~Replicates(d) /\ d.del = "none"
-NoTasks(hs) == \A n \in hs : ~Replicates(Decide27(n, hs, {}, {}))
- \* a check "replicates" when it hands the replicator a task with at least one candidate node. (With overlapping
-\* rules the code as found keeps calling the replicator with an EMPTY candidate list: a holder remembered from
-\* an earlier rule does not lower the shortage of a later rule - a phantom shortage that copies nothing.)
-Replicates(d) == \E k \in 1..Len(d.tasks) : Len(d.tasks[k].nodes) > 0
-Quiet(hs) == \A n \in hs : LET d == Decide27(n, hs, {}, {}) IN ~Replicates(d) /\ d.del = "none"
-NoTasks(hs) == \A n \in hs : ~Replicates(Decide27(n, hs, {}, {}))
-c\* a check "replicates" when it hands the replicator a task with at least one candidate node. (With overlapping
-\* rules the code as found keeps calling the replicator with an EMPTY candidate list: a holder remembered from
-\* an earlier rule does not lower the shortage of a later rule - a phantom shortage that copies nothing.)
-Replicates(d) == \E k \in 1..Len(d.tasks) : Len(d.tasks[k].nodes) > 0
-Quiet(hs) == \A n \in hs : LET d == Decide27(n, hs, {}, {}) IN ~Replicates(d) /\ d.del = "none"
-NoTasks(hs) == \A n \in hs : ~Replicates(Decide27(n, hs, {}, {}))
-o\* a check "replicates" when it hands the replicator a task with at least one candidate node. (With overlapping
-\* rules the code as found keeps calling the replicator with an EMPTY candidate list: a holder remembered from
-\* an earlier rule does not lower the shortage of a later rule - a phantom shortage that copies nothing.)
-Replicates(d) == \E k \in 1..Len(d.tasks) : Len(d.tasks[k].nodes) > 0
-Quiet(hs) == \A n \in hs : LET d == Decide27(n, hs, {}, {}) IN ~Replicates(d) /\ d.del = "none"
-NoTasks(hs) == \A n \in hs : ~Replicates(Decide27(n, hs, {}, {}))
-n\* a check "replicates" when it hands the replicator a task with at least one candidate node. (With overlapping
-\* rules the code as found keeps calling the replicator with an EMPTY candidate list: a holder remembered from
-\* an earlier rule does not lower the shortage of a later rule - a phantom shortage that copies nothing.)
-Replicates(d) == \E k \in 1..Len(d.tasks) : Len(d.tasks[k].nodes) > 0
-Quiet(hs) == \A n \in hs : LET d == Decide27(n, hs, {}, {}) IN ~Replicates(d) /\ d.del = "none"
-NoTasks(hs) == \A n \in hs : ~Replicates(Decide27(n, hs, {}, {}))
-t\* a check "replicates" when it hands the replicator a task with at least one candidate node. (With overlapping
-\* rules the code as found keeps calling the replicator with an EMPTY candidate list: a holder remembered from
-\* an earlier rule does not lower the shortage of a later rule - a phantom shortage that copies nothing.)
-Replicates(d) == \E k \in 1..Len(d.tasks) : Len(d.tasks[k].nodes) > 0
-Quiet(hs) == \A n \in hs : LET d == Decide27(n, hs, {}, {}) IN ~Replicates(d) /\ d.del = "none"
-NoTasks(hs) == \A n \in hs : ~Replicates(Decide27(n, hs, {}, {}))
-a\* a check "replicates" when it hands the replicator a task with at least one candidate node. (With overlapping
-\* rules the code as found keeps calling the replicator with an EMPTY candidate list: a holder remembered from
-\* an earlier rule does not lower the shortage of a later rule - a phantom shortage that copies nothing.)
-Replicates(d) == \E k \in 1..Len(d.tasks) : Len(d.tasks[k].nodes) > 0
-Quiet(hs) == \A n \in hs : LET d == Decide27(n, hs, {}, {}) IN ~Replicates(d) /\ d.del = "none"
-NoTasks(hs) == \A n \in hs : ~Replicates(Decide27(n, hs, {}, {}))
-i\* a check "replicates" when it hands the replicator a task with at least one candidate node. (With overlapping
-\* rules the code as found keeps calling the replicator with an EMPTY candidate list: a holder remembered from
-\* an earlier rule does not lower the shortage of a later rule - a phantom shortage that copies nothing.)
-Replicates(d) == \E k \in 1..Len(d.tasks) : Len(d.tasks[k].nodes) > 0
-Quiet(hs) == \A n \in hs : LET d == Decide27(n, hs, {}, {}) IN ~Replicates(d) /\ d.del = "none"
-NoTasks(hs) == \A n \in hs : ~Replicates(Decide27(n, hs, {}, {}))
-n\* a check "replicates" when it hands the replicator a task with at least one candidate node. (With overlapping
-\* rules the code as found keeps calling the replicator with an EMPTY candidate list: a holder remembered from
-\* an earlier rule does not lower the shortage of a later rule - a phantom shortage that copies nothing.)
-Replicates(d) == \E k \in 1..Len(d.tasks) : Len(d.tasks[k].nodes) > 0
-Quiet(hs) == \A n \in hs : LET d == Decide27(n, hs, {}, {}) IN ~Replicates(d) /\ d.del = "none"
-NoTasks(hs) == \A n \in hs : ~Replicates(Decide27(n, hs, {}, {}))
-e\* a check "replicates" when it hands the replicator a task with at least one candidate node. (With overlapping
-\* rules the code as found keeps calling the replicator with an EMPTY candidate list: a holder remembered from
-\* an earlier rule does not lower the shortage of a later rule - a phantom shortage that copies nothing.)
-Replicates(d) == \E k \in 1..Len(d.tasks) : Len(d.tasks[k].nodes) > 0
-Quiet(hs) == \A n \in hs : LET d == Decide27(n, hs, {}, {}) IN ~Replicates(d) /\ d.del = "none"
-NoTasks(hs) == \A n \in hs : ~Replicates(Decide27(n, hs, {}, {}))
-r\* a check "replicates" when it hands the replicator a task with at least one candidate node. (With overlapping
-\* rules the code as found keeps calling the replicator with an EMPTY candidate list: a holder remembered from
-\* an earlier rule does not lower the shortage of a later rule - a phantom shortage that copies nothing.)
-Replicates(d) == \E k \in 1..Len(d.tasks) : Len(d.tasks[k].nodes) > 0
-Quiet(hs) == \A n \in hs : LET d == Decide27(n, hs, {}, {}) IN ~Replicates(d) /\ d.del = "none"
-NoTasks(hs) == \A n \in hs : ~Replicates(Decide27(n, hs, {}, {}))
- \* a check "replicates" when it hands the replicator a task with at least one candidate node. (With overlapping
-\* rules the code as found keeps calling the replicator with an EMPTY candidate list: a holder remembered from
-\* an earlier rule does not lower the shortage of a later rule - a phantom shortage that copies nothing.)
-Replicates(d) == \E k \in 1..Len(d.tasks) : Len(d.tasks[k].nodes) > 0
-Quiet(hs) == \A n \in hs : LET d == Decide27(n, hs, {}, {}) IN ~Replicates(d) /\ d.del = "none"
-NoTasks(hs) == \A n \in hs : ~Replicates(Decide27(n, hs, {}, {}))
-n\* a check "replicates" when it hands the replicator a task with at least one candidate node. (With overlapping
-\* rules the code as found keeps calling the replicator with an EMPTY candidate list: a holder remembered from
-\* an earlier rule does not lower the shortage of a later rule - a phantom shortage that copies nothing.)
-Replicates(d) == \E k \in 1..Len(d.tasks) : Len(d.tasks[k].nodes) > 0
-Quiet(hs) == \A n \in hs : LET d == Decide27(n, hs, {}, {}) IN ~Replicates(d) /\ d.del = "none"
-NoTasks(hs) == \A n \in hs : ~Replicates(Decide27(n, hs, {}, {}))
-o\* a check "replicates" when it hands the replicator a task with at least one candidate node. (With overlapping
-\* rules the code as found keeps calling the replicator with an EMPTY candidate list: a holder remembered from
-\* an earlier rule does not lower the shortage of a later rule - a phantom shortage that copies nothing.)
-Replicates(d) == \E k \in 1..Len(d.tasks) : Len(d.tasks[k].nodes) > 0
-Quiet(hs) == \A n \in hs : LET d == Decide27(n, hs, {}, {}) IN ~Replicates(d) /\ d.del = "none"
-NoTasks(hs) == \A n \in hs : ~Replicates(Decide27(n, hs, {}, {}))
-d\* a check "replicates" when it hands the replicator a task with at least one candidate node. (With overlapping
-\* rules the code as found keeps calling the replicator with an EMPTY candidate list: a holder remembered from
-\* an earlier rule does not lower the shortage of a later rule - a phantom shortage that copies nothing.)
-Replicates(d) == \E k \in 1..Len(d.tasks) : Len(d.tasks[k].nodes) > 0
-Quiet(hs) == \A n \in hs : LET d == Decide27(n, hs, {}, {}) IN ~Replicates(d) /\ d.del = "none"
-NoTasks(hs) == \A n \in hs : ~Replicates(Decide27(n, hs, {}, {}))
-e\* a check "replicates" when it hands the replicator a task with at least one candidate node. (With overlapping
-\* rules the code as found keeps calling the replicator with an EMPTY candidate list: a holder remembered from
-\* an earlier rule does not lower the shortage of a later rule - a phantom shortage that copies nothing.)
-Replicates(d) == \E k \in 1..Len(d.tasks) : Len(d.tasks[k].nodes) > 0
-Quiet(hs) == \A n \in hs : LET d == Decide27(n, hs, {}, {}) IN ~Replicates(d) /\ d.del = "none"
-NoTasks(hs) == \A n \in hs : ~Replicates(Decide27(n, hs, {}, {}))
-s\* a check "replicates" when it hands the replicator a task with at least one candidate node. (With overlapping
-\* rules the code as found keeps calling the replicator with an EMPTY candidate list: a holder remembered from
-\* an earlier rule does not lower the shortage of a later rule - a phantom shortage that copies nothing.)
-Replicates(d) == \E k \in 1..Len(d.tasks) : Len(d.tasks[k].nodes) > 0
-Quiet(hs) == \A n \in hs : LET d == Decide27(n, hs, {}, {}) IN ~Replicates(d) /\ d.del = "none"
-NoTasks(hs) == \A n \in hs : ~Replicates(Decide27(n, hs, {}, {}))
- \* a check "replicates" when it hands the replicator a task with at least one candidate node. (With overlapping
-\* rules the code as found keeps calling the replicator with an EMPTY candidate list: a holder remembered from
-\* an earlier rule does not lower the shortage of a later rule - a phantom shortage that copies nothing.)
-Replicates(d) == \E k \in 1..Len(d.tasks) : Len(d.tasks[k].nodes) > 0
-Quiet(hs) == \A n \in hs : LET d == Decide27(n, hs, {}, {}) IN ~Replicates(d) /\ d.del = "none"
-NoTasks(hs) == \A n \in hs : ~Replicates(Decide27(n, hs, {}, {}))
-s\* a check "replicates" when it hands the replicator a task with at least one candidate node. (With overlapping
-\* rules the code as found keeps calling the replicator with an EMPTY candidate list: a holder remembered from
-\* an earlier rule does not lower the shortage of a later rule - a phantom shortage that copies nothing.)
-Replicates(d) == \E k \in 1..Len(d.tasks) : Len(d.tasks[k].nodes) > 0
-Quiet(hs) == \A n \in hs : LET d == Decide27(n, hs, {}, {}) IN ~Replicates(d) /\ d.del = "none"
-NoTasks(hs) == \A n \in hs : ~Replicates(Decide27(n, hs, {}, {}))
-o\* a check "replicates" when it hands the replicator a task with at least one candidate node. (With overlapping
-\* rules the code as found keeps calling the replicator with an EMPTY candidate list: a holder remembered from
-\* an earlier rule does not lower the shortage of a later rule - a phantom shortage that copies nothing.)
-Replicates(d) == \E k \in 1..Len(d.tasks) : Len(d.tasks[k].nodes) > 0
-Quiet(hs) == \A n \in hs : LET d == Decide27(n, hs, {}, {}) IN ~Replicates(d) /\ d.del = "none"
-NoTasks(hs) == \A n \in hs : ~Replicates(Decide27(n, hs, {}, {}))
-r\* a check "replicates" when it hands the replicator a task with at least one candidate node. (With overlapping
-\* rules the code as found keeps calling the replicator with an EMPTY candidate list: a holder remembered from
-\* an earlier rule does not lower the shortage of a later rule - a phantom shortage that copies nothing.)
-Replicates(d) == \E k \in 1..Len(d.tasks) : Len(d.tasks[k].nodes) > 0
-Quiet(hs) == \A n \in hs : LET d == Decide27(n, hs, {}, {}) IN ~Replicates(d) /\ d.del = "none"
-NoTasks(hs) == \A n \in hs : ~Replicates(Decide27(n, hs, {}, {}))
-t\* a check "replicates" when it hands the replicator a task with at least one candidate node. (With overlapping
-\* rules the code as found keeps calling the replicator with an EMPTY candidate list: a holder remembered from
-\* an earlier rule does not lower the shortage of a later rule - a phantom shortage that copies nothing.)
-Replicates(d) == \E k \in 1..Len(d.tasks) : Len(d.tasks[k].nodes) > 0
-Quiet(hs) == \A n \in hs : LET d == Decide27(n, hs, {}, {}) IN ~Replicates(d) /\ d.del = "none"
-NoTasks(hs) == \A n \in hs : ~Replicates(Decide27(n, hs, {}, {}))
-e\* a check "replicates" when it hands the replicator a task with at least one candidate node. (With overlapping
-\* rules the code as found keeps calling the replicator with an EMPTY candidate list: a holder remembered from
-\* an earlier rule does not lower the shortage of a later rule - a phantom shortage that copies nothing.)
-Replicates(d) == \E k \in 1..Len(d.tasks) : Len(d.tasks[k].nodes) > 0
-Quiet(hs) == \A n \in hs : LET d == Decide27(n, hs, {}, {}) IN ~Replicates(d) /\ d.del = "none"
-NoTasks(hs) == \A n \in hs : ~Replicates(Decide27(n, hs, {}, {}))
-d\* a check "replicates" when it hands the replicator a task with at least one candidate node. (With overlapping
-\* rules the code as found keeps calling the replicator with an EMPTY candidate list: a holder remembered from
-\* an earlier rule does not lower the shortage of a later rule - a phantom shortage that copies nothing.)
-Replicates(d) == \E k \in 1..Len(d.tasks) : Len(d.tasks[k].nodes) > 0
-Quiet(hs) == \A n \in hs : LET d == Decide27(n, hs, {}, {}) IN ~Replicates(d) /\ d.del = "none"
-NoTasks(hs) == \A n \in hs : ~Replicates(Decide27(n, hs, {}, {}))
- \* a check "replicates" when it hands the replicator a task with at least one candidate node. (With overlapping
-\* rules the code as found keeps calling the replicator with an EMPTY candidate list: a holder remembered from
-\* an earlier rule does not lower the shortage of a later rule - a phantom shortage that copies nothing.)
-Replicates(d) == \E k \in 1..Len(d.tasks) : Len(d.tasks[k].nodes) > 0
-Quiet(hs) == \A n \in hs : LET d == Decide27(n, hs, {}, {}) IN ~Replicates(d) /\ d.del = "none"
-NoTasks(hs) == \A n \in hs : ~Replicates(Decide27(n, hs, {}, {}))
-f\* a check "replicates" when it hands the replicator a task with at least one candidate node. (With overlapping
-\* rules the code as found keeps calling the replicator with an EMPTY candidate list: a holder remembered from
-\* an earlier rule does not lower the shortage of a later rule - a phantom shortage that copies nothing.)
-Replicates(d) == \E k \in 1..Len(d.tasks) : Len(d.tasks[k].nodes) > 0
-Quiet(hs) == \A n \in hs : LET d == Decide27(n, hs, {}, {}) IN ~Replicates(d) /\ d.del = "none"
-NoTasks(hs) == \A n \in hs : ~Replicates(Decide27(n, hs, {}, {}))
-o\* a check "replicates" when it hands the replicator a task with at least one candidate node. (With overlapping
-\* rules the code as found keeps calling the replicator with an EMPTY candidate list: a holder remembered from
-\* an earlier rule does not lower the shortage of a later rule - a phantom shortage that copies nothing.)
-Replicates(d) == \E k \in 1..Len(d.tasks) : Len(d.tasks[k].nodes) > 0
-Quiet(hs) == \A n \in hs : LET d == Decide27(n, hs, {}, {}) IN ~Replicates(d) /\ d.del = "none"
-NoTasks(hs) == \A n \in hs : ~Replicates(Decide27(n, hs, {}, {}))
-r\* a check "replicates" when it hands the replicator a task with at least one candidate node. (With overlapping
-\* rules the code as found keeps calling the replicator with an EMPTY candidate list: a holder remembered from
-\* an earlier rule does not lower the shortage of a later rule - a phantom shortage that copies nothing.)
-Replicates(d) == \E k \in 1..Len(d.tasks) : Len(d.tasks[k].nodes) > 0
-Quiet(hs) == \A n \in hs : LET d == Decide27(n, hs, {}, {}) IN ~Replicates(d) /\ d.del = "none"
-NoTasks(hs) == \A n \in hs : ~Replicates(Decide27(n, hs, {}, {}))
- \* a check "replicates" when it hands the replicator a task with at least one candidate node. (With overlapping
-\* rules the code as found keeps calling the replicator with an EMPTY candidate list: a holder remembered from
-\* an earlier rule does not lower the shortage of a later rule - a phantom shortage that copies nothing.)
-Replicates(d) == \E k \in 1..Len(d.tasks) : Len(d.tasks[k].nodes) > 0
-Quiet(hs) == \A n \in hs : LET d == Decide27(n, hs, {}, {}) IN ~Replicates(d) /\ d.del = "none"
-NoTasks(hs) == \A n \in hs : ~Replicates(Decide27(n, hs, {}, {}))
-t\* a check "replicates" when it hands the replicator a task with at least one candidate node. (With overlapping
-\* rules the code as found keeps calling the replicator with an EMPTY candidate list: a holder remembered from
-\* an earlier rule does not lower the shortage of a later rule - a phantom shortage that copies nothing.)
-Replicates(d) == \E k \in 1..Len(d.tasks) : Len(d.tasks[k].nodes) > 0
-Quiet(hs) == \A n \in hs : LET d == Decide27(n, hs, {}, {}) IN ~Replicates(d) /\ d.del = "none"
-NoTasks(hs) == \A n \in hs : ~Replicates(Decide27(n, hs, {}, {}))
-h\* a check "replicates" when it hands the replicator a task with at least one candidate node. (With overlapping
-\* rules the code as found keeps calling the replicator with an EMPTY candidate list: a holder remembered from
-\* an earlier rule does not lower the shortage of a later rule - a phantom shortage that copies nothing.)
-Replicates(d) == \E k \in 1..Len(d.tasks) : Len(d.tasks[k].nodes) > 0
-Quiet(hs) == \A n \in hs : LET d == Decide27(n, hs, {}, {}) IN ~Replicates(d) /\ d.del = "none"
-NoTasks(hs) == \A n \in hs : ~Replicates(Decide27(n, hs, {}, {}))
-e\* a check "replicates" when it hands the replicator a task with at least one candidate node. (With overlapping
-\* rules the code as found keeps calling the replicator with an EMPTY candidate list: a holder remembered from
-\* an earlier rule does not lower the shortage of a later rule - a phantom shortage that copies nothing.)
-Replicates(d) == \E k \in 1..Len(d.tasks) : Len(d.tasks[k].nodes) > 0
-Quiet(hs) == \A n \in hs : LET d == Decide27(n, hs, {}, {}) IN ~Replicates(d) /\ d.del = "none"
-NoTasks(hs) == \A n \in hs : ~Replicates(Decide27(n, hs, {}, {}))
- \* a check "replicates" when it hands the replicator a task with at least one candidate node. (With overlapping
-\* rules the code as found keeps calling the replicator with an EMPTY candidate list: a holder remembered from
-\* an earlier rule does not lower the shortage of a later rule - a phantom shortage that copies nothing.)
-Replicates(d) == \E k \in 1..Len(d.tasks) : Len(d.tasks[k].nodes) > 0
-Quiet(hs) == \A n \in hs : LET d == Decide27(n, hs, {}, {}) IN ~Replicates(d) /\ d.del = "none"
-NoTasks(hs) == \A n \in hs : ~Replicates(Decide27(n, hs, {}, {}))
-o\* a check "replicates" when it hands the replicator a task with at least one candidate node. (With overlapping
-\* rules the code as found keeps calling the replicator with an EMPTY candidate list: a holder remembered from
-\* an earlier rule does not lower the shortage of a later rule - a phantom shortage that copies nothing.)
-Replicates(d) == \E k \in 1..Len(d.tasks) : Len(d.tasks[k].nodes) > 0
-Quiet(hs) == \A n \in hs : LET d == Decide27(n, hs, {}, {}) IN ~Replicates(d) /\ d.del = "none"
-NoTasks(hs) == \A n \in hs : ~Replicates(Decide27(n, hs, {}, {}))
-b\* a check "replicates" when it hands the replicator a task with at least one candidate node. (With overlapping
-\* rules the code as found keeps calling the replicator with an EMPTY candidate list: a holder remembered from
-\* an earlier rule does not lower the shortage of a later rule - a phantom shortage that copies nothing.)
-Replicates(d) == \E k \in 1..Len(d.tasks) : Len(d.tasks[k].nodes) > 0
-Quiet(hs) == \A n \in hs : LET d == Decide27(n, hs, {}, {}) IN ~Replicates(d) /\ d.del = "none"
-NoTasks(hs) == \A n \in hs : ~Replicates(Decide27(n, hs, {}, {}))
-j\* a check "replicates" when it hands the replicator a task with at least one candidate node. (With overlapping
-\* rules the code as found keeps calling the replicator with an EMPTY candidate list: a holder remembered from
-\* an earlier rule does not lower the shortage of a later rule - a phantom shortage that copies nothing.)
-Replicates(d) == \E k \in 1..Len(d.tasks) : Len(d.tasks[k].nodes) > 0
-Quiet(hs) == \A n \in hs : LET d == Decide27(n, hs, {}, {}) IN ~Replicates(d) /\ d.del = "none"
-NoTasks(hs) == \A n \in hs : ~Replicates(Decide27(n, hs, {}, {}))
-e\* a check "replicates" when it hands the replicator a task with at least one candidate node. (With overlapping
-\* rules the code as found keeps calling the replicator with an EMPTY candidate list: a holder remembered from
-\* an earlier rule does not lower the shortage of a later rule - a phantom shortage that copies nothing.)
-Replicates(d) == \E k \in 1..Len(d.tasks) : Len(d.tasks[k].nodes) > 0
-Quiet(hs) == \A n \in hs : LET d == Decide27(n, hs, {}, {}) IN ~Replicates(d) /\ d.del = "none"
-NoTasks(hs) == \A n \in hs : ~Replicates(Decide27(n, hs, {}, {}))
-c\* a check "replicates" when it hands the replicator a task with at least one candidate node. (With overlapping
-\* rules the code as found keeps calling the replicator with an EMPTY candidate list: a holder remembered from
-\* an earlier rule does not lower the shortage of a later rule - a phantom shortage that copies nothing.)
-Replicates(d) == \E k \in 1..Len(d.tasks) : Len(d.tasks[k].nodes) > 0
-Quiet(hs) == \A n \in hs : LET d == Decide27(n, hs, {}, {}) IN ~Replicates(d) /\ d.del = "none"
-NoTasks(hs) == \A n \in hs : ~Replicates(Decide27(n, hs, {}, {}))
-t\* a check "replicates" when it hands the replicator a task with at least one candidate node. (With overlapping
-\* rules the code as found keeps calling the replicator with an EMPTY candidate list: a holder remembered from
-\* an earlier rule does not lower the shortage of a later rule - a phantom shortage that copies nothing.)
-Replicates(d) == \E k \in 1..Len(d.tasks) : Len(d.tasks[k].nodes) > 0
-Quiet(hs) == \A n \in hs : LET d == Decide27(n, hs, {}, {}) IN ~Replicates(d) /\ d.del = "none"
-NoTasks(hs) == \A n \in hs : ~Replicates(Decide27(n, hs, {}, {}))
-,\* a check "replicates" when it hands the replicator a task with at least one candidate node. (With overlapping
-\* rules the code as found keeps calling the replicator with an EMPTY candidate list: a holder remembered from
-\* an earlier rule does not lower the shortage of a later rule - a phantom shortage that copies nothing.)
-Replicates(d) == \E k \in 1..Len(d.tasks) : Len(d.tasks[k].nodes) > 0
-Quiet(hs) == \A n \in hs : LET d == Decide27(n, hs, {}, {}) IN ~Replicates(d) /\ d.del = "none"
-NoTasks(hs) == \A n \in hs : ~Replicates(Decide27(n, hs, {}, {}))
- \* a check "replicates" when it hands the replicator a task with at least one candidate node. (With overlapping
-\* rules the code as found keeps calling the replicator with an EMPTY candidate list: a holder remembered from
-\* an earlier rule does not lower the shortage of a later rule - a phantom shortage that copies nothing.)
-Replicates(d) == \E k \in 1..Len(d.tasks) : Len(d.tasks[k].nodes) > 0
-Quiet(hs) == \A n \in hs : LET d == Decide27(n, hs, {}, {}) IN ~Replicates(d) /\ d.del = "none"
-NoTasks(hs) == \A n \in hs : ~Replicates(Decide27(n, hs, {}, {}))
-n\* a check "replicates" when it hands the replicator a task with at least one candidate node. (With overlapping
-\* rules the code as found keeps calling the replicator with an EMPTY candidate list: a holder remembered from
-\* an earlier rule does not lower the shortage of a later rule - a phantom shortage that copies nothing.)
-Replicates(d) == \E k \in 1..Len(d.tasks) : Len(d.tasks[k].nodes) > 0
-Quiet(hs) == \A n \in hs : LET d == Decide27(n, hs, {}, {}) IN ~Replicates(d) /\ d.del = "none"
-NoTasks(hs) == \A n \in hs : ~Replicates(Decide27(n, hs, {}, {}))
- \* a check "replicates" when it hands the replicator a task with at least one candidate node. (With overlapping
-\* rules the code as found keeps calling the replicator with an EMPTY candidate list: a holder remembered from
-\* an earlier rule does not lower the shortage of a later rule - a phantom shortage that copies nothing.)
-Replicates(d) == \E k \in 1..Len(d.tasks) : Len(d.tasks[k].nodes) > 0
-Quiet(hs) == \A n \in hs : LET d == Decide27(n, hs, {}, {}) IN ~Replicates(d) /\ d.del = "none"
-NoTasks(hs) == \A n \in hs : ~Replicates(Decide27(n, hs, {}, {}))
-|\* a check "replicates" when it hands the replicator a task with at least one candidate node. (With overlapping
-\* rules the code as found keeps calling the replicator with an EMPTY candidate list: a holder remembered from
-\* an earlier rule does not lower the shortage of a later rule - a phantom shortage that copies nothing.)
-Replicates(d) == \E k \in 1..Len(d.tasks) : Len(d.tasks[k].nodes) > 0
-Quiet(hs) == \A n \in hs : LET d == Decide27(n, hs, {}, {}) IN ~Replicates(d) /\ d.del = "none"
-NoTasks(hs) == \A n \in hs : ~Replicates(Decide27(n, hs, {}, {}))
--\* a check "replicates" when it hands the replicator a task with at least one candidate node. (With overlapping
-\* rules the code as found keeps calling the replicator with an EMPTY candidate list: a holder remembered from
-\* an earlier rule does not lower the shortage of a later rule - a phantom shortage that copies nothing.)
-Replicates(d) == \E k \in 1..Len(d.tasks) : Len(d.tasks[k].nodes) > 0
-Quiet(hs) == \A n \in hs : LET d == Decide27(n, hs, {}, {}) IN ~Replicates(d) /\ d.del = "none"
-NoTasks(hs) == \A n \in hs : ~Replicates(Decide27(n, hs, {}, {}))
->\* a check "replicates" when it hands the replicator a task with at least one candidate node. (With overlapping
-\* rules the code as found keeps calling the replicator with an EMPTY candidate list: a holder remembered from
-\* an earlier rule does not lower the shortage of a later rule - a phantom shortage that copies nothing.)
-Replicates(d) == \E k \in 1..Len(d.tasks) : Len(d.tasks[k].nodes) > 0
-Quiet(hs) == \A n \in hs : LET d == Decide27(n, hs, {}, {}) IN ~Replicates(d) /\ d.del = "none"
-NoTasks(hs) == \A n \in hs : ~Replicates(Decide27(n, hs, {}, {}))
- \* a check "replicates" when it hands the replicator a task with at least one candidate node. (With overlapping
-\* rules the code as found keeps calling the replicator with an EMPTY candidate list: a holder remembered from
-\* an earlier rule does not lower the shortage of a later rule - a phantom shortage that copies nothing.)
-Replicates(d) == \E k \in 1..Len(d.tasks) : Len(d.tasks[k].nodes) > 0
-Quiet(hs) == \A n \in hs : LET d == Decide27(n, hs, {}, {}) IN ~Replicates(d) /\ d.del = "none"
-NoTasks(hs) == \A n \in hs : ~Replicates(Decide27(n, hs, {}, {}))
-c\* a check "replicates" when it hands the replicator a task with at least one candidate node. (With overlapping
-\* rules the code as found keeps calling the replicator with an EMPTY candidate list: a holder remembered from
-\* an earlier rule does not lower the shortage of a later rule - a phantom shortage that copies nothing.)
-Replicates(d) == \E k \in 1..Len(d.tasks) : Len(d.tasks[k].nodes) > 0
-Quiet(hs) == \A n \in hs : LET d == Decide27(n, hs, {}, {}) IN ~Replicates(d) /\ d.del = "none"
-NoTasks(hs) == \A n \in hs : ~Replicates(Decide27(n, hs, {}, {}))
-o\* a check "replicates" when it hands the replicator a task with at least one candidate node. (With overlapping
-\* rules the code as found keeps calling the replicator with an EMPTY candidate list: a holder remembered from
-\* an earlier rule does not lower the shortage of a later rule - a phantom shortage that copies nothing.)
-Replicates(d) == \E k \in 1..Len(d.tasks) : Len(d.tasks[k].nodes) > 0
-Quiet(hs) == \A n \in hs : LET d == Decide27(n, hs, {}, {}) IN ~Replicates(d) /\ d.del = "none"
-NoTasks(hs) == \A n \in hs : ~Replicates(Decide27(n, hs, {}, {}))
-p\* a check "replicates" when it hands the replicator a task with at least one candidate node. (With overlapping
-\* rules the code as found keeps calling the replicator with an EMPTY candidate list: a holder remembered from
-\* an earlier rule does not lower the shortage of a later rule - a phantom shortage that copies nothing.)
-Replicates(d) == \E k \in 1..Len(d.tasks) : Len(d.tasks[k].nodes) > 0
-Quiet(hs) == \A n \in hs : LET d == Decide27(n, hs, {}, {}) IN ~Replicates(d) /\ d.del = "none"
-NoTasks(hs) == \A n \in hs : ~Replicates(Decide27(n, hs, {}, {}))
-i\* a check "replicates" when it hands the replicator a task with at least one candidate node. (With overlapping
-\* rules the code as found keeps calling the replicator with an EMPTY candidate list: a holder remembered from
-\* an earlier rule does not lower the shortage of a later rule - a phantom shortage that copies nothing.)
-Replicates(d) == \E k \in 1..Len(d.tasks) : Len(d.tasks[k].nodes) > 0
-Quiet(hs) == \A n \in hs : LET d == Decide27(n, hs, {}, {}) IN ~Replicates(d) /\ d.del = "none"
-NoTasks(hs) == \A n \in hs : ~Replicates(Decide27(n, hs, {}, {}))
-e\* a check "replicates" when it hands the replicator a task with at least one candidate node. (With overlapping
-\* rules the code as found keeps calling the replicator with an EMPTY candidate list: a holder remembered from
-\* an earlier rule does not lower the shortage of a later rule - a phantom shortage that copies nothing.)
-Replicates(d) == \E k \in 1..Len(d.tasks) : Len(d.tasks[k].nodes) > 0
-Quiet(hs) == \A n \in hs : LET d == Decide27(n, hs, {}, {}) IN ~Replicates(d) /\ d.del = "none"
-NoTasks(hs) == \A n \in hs : ~Replicates(Decide27(n, hs, {}, {}))
-s\* a check "replicates" when it hands the replicator a task with at least one candidate node. (With overlapping
-\* rules the code as found keeps calling the replicator with an EMPTY candidate list: a holder remembered from
-\* an earlier rule does not lower the shortage of a later rule - a phantom shortage that copies nothing.)
-Replicates(d) == \E k \in 1..Len(d.tasks) : Len(d.tasks[k].nodes) > 0
-Quiet(hs) == \A n \in hs : LET d == Decide27(n, hs, {}, {}) IN ~Replicates(d) /\ d.del = "none"
-NoTasks(hs) == \A n \in hs : ~Replicates(Decide27(n, hs, {}, {}))
-]\* a check "replicates" when it hands the replicator a task with at least one candidate node. (With overlapping
-\* rules the code as found keeps calling the replicator with an EMPTY candidate list: a holder remembered from
-\* an earlier rule does not lower the shortage of a later rule - a phantom shortage that copies nothing.)
-Replicates(d) == \E k \in 1..Len(d.tasks) : Len(d.tasks[k].nodes) > 0
-Quiet(hs) == \A n \in hs : LET d == Decide27(n, hs, {}, {}) IN ~Replicates(d) /\ d.del = "none"
-NoTasks(hs) == \A n \in hs : ~Replicates(Decide27(n, hs, {}, {}))
-;\* a check "replicates" when it hands the replicator a task with at least one candidate node. (With overlapping
-\* rules the code as found keeps calling the replicator with an EMPTY candidate list: a holder remembered from
-\* an earlier rule does not lower the shortage of a later rule - a phantom shortage that copies nothing.)
-Replicates(d) == \E k \in 1..Len(d.tasks) : Len(d.tasks[k].nodes) > 0
-Quiet(hs) == \A n \in hs : LET d == Decide27(n, hs, {}, {}) IN ~Replicates(d) /\ d.del = "none"
-NoTasks(hs) == \A n \in hs : ~Replicates(Decide27(n, hs, {}, {}))
- \* a check "replicates" when it hands the replicator a task with at least one candidate node. (With overlapping
-\* rules the code as found keeps calling the replicator with an EMPTY candidate list: a holder remembered from
-\* an earlier rule does not lower the shortage of a later rule - a phantom shortage that copies nothing.)
-Replicates(d) == \E k \in 1..Len(d.tasks) : Len(d.tasks[k].nodes) > 0
-Quiet(hs) == \A n \in hs : LET d == Decide27(n, hs, {}, {}) IN ~Replicates(d) /\ d.del = "none"
-NoTasks(hs) == \A n \in hs : ~Replicates(Decide27(n, hs, {}, {}))
-l\* a check "replicates" when it hands the replicator a task with at least one candidate node. (With overlapping
-\* rules the code as found keeps calling the replicator with an EMPTY candidate list: a holder remembered from
-\* an earlier rule does not lower the shortage of a later rule - a phantom shortage that copies nothing.)
-Replicates(d) == \E k \in 1..Len(d.tasks) : Len(d.tasks[k].nodes) > 0
-Quiet(hs) == \A n \in hs : LET d == Decide27(n, hs, {}, {}) IN ~Replicates(d) /\ d.del = "none"
-NoTasks(hs) == \A n \in hs : ~Replicates(Decide27(n, hs, {}, {}))
-i\* a check "replicates" when it hands the replicator a task with at least one candidate node. (With overlapping
-\* rules the code as found keeps calling the replicator with an EMPTY candidate list: a holder remembered from
-\* an earlier rule does not lower the shortage of a later rule - a phantom shortage that copies nothing.)
-Replicates(d) == \E k \in 1..Len(d.tasks) : Len(d.tasks[k].nodes) > 0
-Quiet(hs) == \A n \in hs : LET d == Decide27(n, hs, {}, {}) IN ~Replicates(d) /\ d.del = "none"
-NoTasks(hs) == \A n \in hs : ~Replicates(Decide27(n, hs, {}, {}))
-s\* a check "replicates" when it hands the replicator a task with at least one candidate node. (With overlapping
-\* rules the code as found keeps calling the replicator with an EMPTY candidate list: a holder remembered from
-\* an earlier rule does not lower the shortage of a later rule - a phantom shortage that copies nothing.)
-Replicates(d) == \E k \in 1..Len(d.tasks) : Len(d.tasks[k].nodes) > 0
-Quiet(hs) == \A n \in hs : LET d == Decide27(n, hs, {}, {}) IN ~Replicates(d) /\ d.del = "none"
-NoTasks(hs) == \A n \in hs : ~Replicates(Decide27(n, hs, {}, {}))
-t\* a check "replicates" when it hands the replicator a task with at least one candidate node. (With overlapping
-\* rules the code as found keeps calling the replicator with an EMPTY candidate list: a holder remembered from
-\* an earlier rule does not lower the shortage of a later rule - a phantom shortage that copies nothing.)
-Replicates(d) == \E k \in 1..Len(d.tasks) : Len(d.tasks[k].nodes) > 0
-Quiet(hs) == \A n \in hs : LET d == Decide27(n, hs, {}, {}) IN ~Replicates(d) /\ d.del = "none"
-NoTasks(hs) == \A n \in hs : ~Replicates(Decide27(n, hs, {}, {}))
-s\* a check "replicates" when it hands the replicator a task with at least one candidate node. (With overlapping
-\* rules the code as found keeps calling the replicator with an EMPTY candidate list: a holder remembered from
-\* an earlier rule does not lower the shortage of a later rule - a phantom shortage that copies nothing.)
-Replicates(d) == \E k \in 1..Len(d.tasks) : Len(d.tasks[k].nodes) > 0
-Quiet(hs) == \A n \in hs : LET d == Decide27(n, hs, {}, {}) IN ~Replicates(d) /\ d.del = "none"
-NoTasks(hs) == \A n \in hs : ~Replicates(Decide27(n, hs, {}, {}))
- \* a check "replicates" when it hands the replicator a task with at least one candidate node. (With overlapping
-\* rules the code as found keeps calling the replicator with an EMPTY candidate list: a holder remembered from
-\* an earlier rule does not lower the shortage of a later rule - a phantom shortage that copies nothing.)
-Replicates(d) == \E k \in 1..Len(d.tasks) : Len(d.tasks[k].nodes) > 0
-Quiet(hs) == \A n \in hs : LET d == Decide27(n, hs, {}, {}) IN ~Replicates(d) /\ d.del = "none"
-NoTasks(hs) == \A n \in hs : ~Replicates(Decide27(n, hs, {}, {}))
-m\* a check "replicates" when it hands the replicator a task with at least one candidate node. (With overlapping
-\* rules the code as found keeps calling the replicator with an EMPTY candidate list: a holder remembered from
-\* an earlier rule does not lower the shortage of a later rule - a phantom shortage that copies nothing.)
-Replicates(d) == \E k \in 1..Len(d.tasks) : Len(d.tasks[k].nodes) > 0
-Quiet(hs) == \A n \in hs : LET d == Decide27(n, hs, {}, {}) IN ~Replicates(d) /\ d.del = "none"
-NoTasks(hs) == \A n \in hs : ~Replicates(Decide27(n, hs, {}, {}))
-a\* a check "replicates" when it hands the replicator a task with at least one candidate node. (With overlapping
-\* rules the code as found keeps calling the replicator with an EMPTY candidate list: a holder remembered from
-\* an earlier rule does not lower the shortage of a later rule - a phantom shortage that copies nothing.)
-Replicates(d) == \E k \in 1..Len(d.tasks) : Len(d.tasks[k].nodes) > 0
-Quiet(hs) == \A n \in hs : LET d == Decide27(n, hs, {}, {}) IN ~Replicates(d) /\ d.del = "none"
-NoTasks(hs) == \A n \in hs : ~Replicates(Decide27(n, hs, {}, {}))
-y\* a check "replicates" when it hands the replicator a task with at least one candidate node. (With overlapping
-\* rules the code as found keeps calling the replicator with an EMPTY candidate list: a holder remembered from
-\* an earlier rule does not lower the shortage of a later rule - a phantom shortage that copies nothing.)
-Replicates(d) == \E k \in 1..Len(d.tasks) : Len(d.tasks[k].nodes) > 0
-Quiet(hs) == \A n \in hs : LET d == Decide27(n, hs, {}, {}) IN ~Replicates(d) /\ d.del = "none"
-NoTasks(hs) == \A n \in hs : ~Replicates(Decide27(n, hs, {}, {}))
- \* a check "replicates" when it hands the replicator a task with at least one candidate node. (With overlapping
-\* rules the code as found keeps calling the replicator with an EMPTY candidate list: a holder remembered from
-\* an earlier rule does not lower the shortage of a later rule - a phantom shortage that copies nothing.)
-Replicates(d) == \E k \in 1..Len(d.tasks) : Len(d.tasks[k].nodes) > 0
-Quiet(hs) == \A n \in hs : LET d == Decide27(n, hs, {}, {}) IN ~Replicates(d) /\ d.del = "none"
-NoTasks(hs) == \A n \in hs : ~Replicates(Decide27(n, hs, {}, {}))
-o\* a check "replicates" when it hands the replicator a task with at least one candidate node. (With overlapping
-\* rules the code as found keeps calling the replicator with an EMPTY candidate list: a holder remembered from
-\* an earlier rule does not lower the shortage of a later rule - a phantom shortage that copies nothing.)
-Replicates(d) == \E k \in 1..Len(d.tasks) : Len(d.tasks[k].nodes) > 0
-Quiet(hs) == \A n \in hs : LET d == Decide27(n, hs, {}, {}) IN ~Replicates(d) /\ d.del = "none"
-NoTasks(hs) == \A n \in hs : ~Replicates(Decide27(n, hs, {}, {}))
-v\* a check "replicates" when it hands the replicator a task with at least one candidate node. (With overlapping
-\* rules the code as found keeps calling the replicator with an EMPTY candidate list: a holder remembered from
-\* an earlier rule does not lower the shortage of a later rule - a phantom shortage that copies nothing.)
-Replicates(d) == \E k \in 1..Len(d.tasks) : Len(d.tasks[k].nodes) > 0
-Quiet(hs) == \A n \in hs : LET d == Decide27(n, hs, {}, {}) IN ~Replicates(d) /\ d.del = "none"
-NoTasks(hs) == \A n \in hs : ~Replicates(Decide27(n, hs, {}, {}))
-e\* a check "replicates" when it hands the replicator a task with at least one candidate node. (With overlapping
-\* rules the code as found keeps calling the replicator with an EMPTY candidate list: a holder remembered from
-\* an earlier rule does not lower the shortage of a later rule - a phantom shortage that copies nothing.)
-Replicates(d) == \E k \in 1..Len(d.tasks) : Len(d.tasks[k].nodes) > 0
-Quiet(hs) == \A n \in hs : LET d == Decide27(n, hs, {}, {}) IN ~Replicates(d) /\ d.del = "none"
-NoTasks(hs) == \A n \in hs : ~Replicates(Decide27(n, hs, {}, {}))
-r\* a check "replicates" when it hands the replicator a task with at least one candidate node. (With overlapping
-\* rules the code as found keeps calling the replicator with an EMPTY candidate list: a holder remembered from
-\* an earlier rule does not lower the shortage of a later rule - a phantom shortage that copies nothing.)
-Replicates(d) == \E k \in 1..Len(d.tasks) : Len(d.tasks[k].nodes) > 0
-Quiet(hs) == \A n \in hs : LET d == Decide27(n, hs, {}, {}) IN ~Replicates(d) /\ d.del = "none"
-NoTasks(hs) == \A n \in hs : ~Replicates(Decide27(n, hs, {}, {}))
-l\* a check "replicates" when it hands the replicator a task with at least one candidate node. (With overlapping
-\* rules the code as found keeps calling the replicator with an EMPTY candidate list: a holder remembered from
-\* an earlier rule does not lower the shortage of a later rule - a phantom shortage that copies nothing.)
-Replicates(d) == \E k \in 1..Len(d.tasks) : Len(d.tasks[k].nodes) > 0
-Quiet(hs) == \A n \in hs : LET d == Decide27(n, hs, {}, {}) IN ~Replicates(d) /\ d.del = "none"
-NoTasks(hs) == \A n \in hs : ~Replicates(Decide27(n, hs, {}, {}))
-a\* a check "replicates" when it hands the replicator a task with at least one candidate node. (With overlapping
-\* rules the code as found keeps calling the replicator with an EMPTY candidate list: a holder remembered from
-\* an earlier rule does not lower the shortage of a later rule - a phantom shortage that copies nothing.)
-Replicates(d) == \E k \in 1..Len(d.tasks) : Len(d.tasks[k].nodes) > 0
-Quiet(hs) == \A n \in hs : LET d == Decide27(n, hs, {}, {}) IN ~Replicates(d) /\ d.del = "none"
-NoTasks(hs) == \A n \in hs : ~Replicates(Decide27(n, hs, {}, {}))
-p\* a check "replicates" when it hands the replicator a task with at least one candidate node. (With overlapping
-\* rules the code as found keeps calling the replicator with an EMPTY candidate list: a holder remembered from
-\* an earlier rule does not lower the shortage of a later rule - a phantom shortage that copies nothing.)
-Replicates(d) == \E k \in 1..Len(d.tasks) : Len(d.tasks[k].nodes) > 0
-Quiet(hs) == \A n \in hs : LET d == Decide27(n, hs, {}, {}) IN ~Replicates(d) /\ d.del = "none"
-NoTasks(hs) == \A n \in hs : ~Replicates(Decide27(n, hs, {}, {}))
- \* a check "replicates" when it hands the replicator a task with at least one candidate node. (With overlapping
-\* rules the code as found keeps calling the replicator with an EMPTY candidate list: a holder remembered from
-\* an earlier rule does not lower the shortage of a later rule - a phantom shortage that copies nothing.)
-Replicates(d) == \E k \in 1..Len(d.tasks) : Len(d.tasks[k].nodes) > 0
-Quiet(hs) == \A n \in hs : LET d == Decide27(n, hs, {}, {}) IN ~Replicates(d) /\ d.del = "none"
-NoTasks(hs) == \A n \in hs : ~Replicates(Decide27(n, hs, {}, {}))
-a\* a check "replicates" when it hands the replicator a task with at least one candidate node. (With overlapping
-\* rules the code as found keeps calling the replicator with an EMPTY candidate list: a holder remembered from
-\* an earlier rule does not lower the shortage of a later rule - a phantom shortage that copies nothing.)
-Replicates(d) == \E k \in 1..Len(d.tasks) : Len(d.tasks[k].nodes) > 0
-Quiet(hs) == \A n \in hs : LET d == Decide27(n, hs, {}, {}) IN ~Replicates(d) /\ d.del = "none"
-NoTasks(hs) == \A n \in hs : ~Replicates(Decide27(n, hs, {}, {}))
-n\* a check "replicates" when it hands the replicator a task with at least one candidate node. (With overlapping
-\* rules the code as found keeps calling the replicator with an EMPTY candidate list: a holder remembered from
-\* an earlier rule does not lower the shortage of a later rule - a phantom shortage that copies nothing.)
-Replicates(d) == \E k \in 1..Len(d.tasks) : Len(d.tasks[k].nodes) > 0
-Quiet(hs) == \A n \in hs : LET d == Decide27(n, hs, {}, {}) IN ~Replicates(d) /\ d.del = "none"
-NoTasks(hs) == \A n \in hs : ~Replicates(Decide27(n, hs, {}, {}))
-d\* a check "replicates" when it hands the replicator a task with at least one candidate node. (With overlapping
-\* rules the code as found keeps calling the replicator with an EMPTY candidate list: a holder remembered from
-\* an earlier rule does not lower the shortage of a later rule - a phantom shortage that copies nothing.)
-Replicates(d) == \E k \in 1..Len(d.tasks) : Len(d.tasks[k].nodes) > 0
-Quiet(hs) == \A n \in hs : LET d == Decide27(n, hs, {}, {}) IN ~Replicates(d) /\ d.del = "none"
-NoTasks(hs) == \A n \in hs : ~Replicates(Decide27(n, hs, {}, {}))
-
-\* a check "replicates" when it hands the replicator a task with at least one candidate node. (With overlapping
-\* rules the code as found keeps calling the replicator with an EMPTY candidate list: a holder remembered from
-\* an earlier rule does not lower the shortage of a later rule - a phantom shortage that copies nothing.)
-Replicates(d) == \E k \in 1..Len(d.tasks) : Len(d.tasks[k].nodes) > 0
-Quiet(hs) == \A n \in hs : LET d == Decide27(n, hs, {}, {}) IN ~Replicates(d) /\ d.del = "none"
-NoTasks(hs) == \A n \in hs : ~Replicates(Decide27(n, hs, {}, {}))
- \* a check "replicates" when it hands the replicator a task with at least one candidate node. (With overlapping
-\* rules the code as found keeps calling the replicator with an EMPTY candidate list: a holder remembered from
-\* an earlier rule does not lower the shortage of a later rule - a phantom shortage that copies nothing.)
-Replicates(d) == \E k \in 1..Len(d.tasks) : Len(d.tasks[k].nodes) > 0
-Quiet(hs) == \A n \in hs : LET d == Decide27(n, hs, {}, {}) IN ~Replicates(d) /\ d.del = "none"
-NoTasks(hs) == \A n \in hs : ~Replicates(Decide27(n, hs, {}, {}))
- \* a check "replicates" when it hands the replicator a task with at least one candidate node. (With overlapping
-\* rules the code as found keeps calling the replicator with an EMPTY candidate list: a holder remembered from
-\* an earlier rule does not lower the shortage of a later rule - a phantom shortage that copies nothing.)
-Replicates(d) == \E k \in 1..Len(d.tasks) : Len(d.tasks[k].nodes) > 0
-Quiet(hs) == \A n \in hs : LET d == Decide27(n, hs, {}, {}) IN ~Replicates(d) /\ d.del = "none"
-NoTasks(hs) == \A n \in hs : ~Replicates(Decide27(n, hs, {}, {}))
- \* a check "replicates" when it hands the replicator a task with at least one candidate node. (With overlapping
-\* rules the code as found keeps calling the replicator with an EMPTY candidate list: a holder remembered from
-\* an earlier rule does not lower the shortage of a later rule - a phantom shortage that copies nothing.)
-Replicates(d) == \E k \in 1..Len(d.tasks) : Len(d.tasks[k].nodes) > 0
-Quiet(hs) == \A n \in hs : LET d == Decide27(n, hs, {}, {}) IN ~Replicates(d) /\ d.del = "none"
-NoTasks(hs) == \A n \in hs : ~Replicates(Decide27(n, hs, {}, {}))
-n\* a check "replicates" when it hands the replicator a task with at least one candidate node. (With overlapping
-\* rules the code as found keeps calling the replicator with an EMPTY candidate list: a holder remembered from
-\* an earlier rule does not lower the shortage of a later rule - a phantom shortage that copies nothing.)
-Replicates(d) == \E k \in 1..Len(d.tasks) : Len(d.tasks[k].nodes) > 0
-Quiet(hs) == \A n \in hs : LET d == Decide27(n, hs, {}, {}) IN ~Replicates(d) /\ d.del = "none"
-NoTasks(hs) == \A n \in hs : ~Replicates(Decide27(n, hs, {}, {}))
-e\* a check "replicates" when it hands the replicator a task with at least one candidate node. (With overlapping
-\* rules the code as found keeps calling the replicator with an EMPTY candidate list: a holder remembered from
-\* an earlier rule does not lower the shortage of a later rule - a phantom shortage that copies nothing.)
-Replicates(d) == \E k \in 1..Len(d.tasks) : Len(d.tasks[k].nodes) > 0
-Quiet(hs) == \A n \in hs : LET d == Decide27(n, hs, {}, {}) IN ~Replicates(d) /\ d.del = "none"
-NoTasks(hs) == \A n \in hs : ~Replicates(Decide27(n, hs, {}, {}))
-e\* a check "replicates" when it hands the replicator a task with at least one candidate node. (With overlapping
-\* rules the code as found keeps calling the replicator with an EMPTY candidate list: a holder remembered from
-\* an earlier rule does not lower the shortage of a later rule - a phantom shortage that copies nothing.)
-Replicates(d) == \E k \in 1..Len(d.tasks) : Len(d.tasks[k].nodes) > 0
-Quiet(hs) == \A n \in hs : LET d == Decide27(n, hs, {}, {}) IN ~Replicates(d) /\ d.del = "none"
-NoTasks(hs) == \A n \in hs : ~Replicates(Decide27(n, hs, {}, {}))
-d\* a check "replicates" when it hands the replicator a task with at least one candidate node. (With overlapping
-\* rules the code as found keeps calling the replicator with an EMPTY candidate list: a holder remembered from
-\* an earlier rule does not lower the shortage of a later rule - a phantom shortage that copies nothing.)
-Replicates(d) == \E k \in 1..Len(d.tasks) : Len(d.tasks[k].nodes) > 0
-Quiet(hs) == \A n \in hs : LET d == Decide27(n, hs, {}, {}) IN ~Replicates(d) /\ d.del = "none"
-NoTasks(hs) == \A n \in hs : ~Replicates(Decide27(n, hs, {}, {}))
- \* a check "replicates" when it hands the replicator a task with at least one candidate node. (With overlapping
-\* rules the code as found keeps calling the replicator with an EMPTY candidate list: a holder remembered from
-\* an earlier rule does not lower the shortage of a later rule - a phantom shortage that copies nothing.)
-Replicates(d) == \E k \in 1..Len(d.tasks) : Len(d.tasks[k].nodes) > 0
-Quiet(hs) == \A n \in hs : LET d == Decide27(n, hs, {}, {}) IN ~Replicates(d) /\ d.del = "none"
-NoTasks(hs) == \A n \in hs : ~Replicates(Decide27(n, hs, {}, {}))
-n\* a check "replicates" when it hands the replicator a task with at least one candidate node. (With overlapping
-\* rules the code as found keeps calling the replicator with an EMPTY candidate list: a holder remembered from
-\* an earlier rule does not lower the shortage of a later rule - a phantom shortage that copies nothing.)
-Replicates(d) == \E k \in 1..Len(d.tasks) : Len(d.tasks[k].nodes) > 0
-Quiet(hs) == \A n \in hs : LET d == Decide27(n, hs, {}, {}) IN ~Replicates(d) /\ d.del = "none"
-NoTasks(hs) == \A n \in hs : ~Replicates(Decide27(n, hs, {}, {}))
-o\* a check "replicates" when it hands the replicator a task with at least one candidate node. (With overlapping
-\* rules the code as found keeps calling the replicator with an EMPTY candidate list: a holder remembered from
-\* an earlier rule does not lower the shortage of a later rule - a phantom shortage that copies nothing.)
-Replicates(d) == \E k \in 1..Len(d.tasks) : Len(d.tasks[k].nodes) > 0
-Quiet(hs) == \A n \in hs : LET d == Decide27(n, hs, {}, {}) IN ~Replicates(d) /\ d.del = "none"
-NoTasks(hs) == \A n \in hs : ~Replicates(Decide27(n, hs, {}, {}))
-t\* a check "replicates" when it hands the replicator a task with at least one candidate node. (With overlapping
-\* rules the code as found keeps calling the replicator with an EMPTY candidate list: a holder remembered from
-\* an earlier rule does not lower the shortage of a later rule - a phantom shortage that copies nothing.)
-Replicates(d) == \E k \in 1..Len(d.tasks) : Len(d.tasks[k].nodes) > 0
-Quiet(hs) == \A n \in hs : LET d == Decide27(n, hs, {}, {}) IN ~Replicates(d) /\ d.del = "none"
-NoTasks(hs) == \A n \in hs : ~Replicates(Decide27(n, hs, {}, {}))
- \* a check "replicates" when it hands the replicator a task with at least one candidate node. (With overlapping
-\* rules the code as found keeps calling the replicator with an EMPTY candidate list: a holder remembered from
-\* an earlier rule does not lower the shortage of a later rule - a phantom shortage that copies nothing.)
-Replicates(d) == \E k \in 1..Len(d.tasks) : Len(d.tasks[k].nodes) > 0
-Quiet(hs) == \A n \in hs : LET d == Decide27(n, hs, {}, {}) IN ~Replicates(d) /\ d.del = "none"
-NoTasks(hs) == \A n \in hs : ~Replicates(Decide27(n, hs, {}, {}))
-c\* a check "replicates" when it hands the replicator a task with at least one candidate node. (With overlapping
-\* rules the code as found keeps calling the replicator with an EMPTY candidate list: a holder remembered from
-\* an earlier rule does not lower the shortage of a later rule - a phantom shortage that copies nothing.)
-Replicates(d) == \E k \in 1..Len(d.tasks) : Len(d.tasks[k].nodes) > 0
-Quiet(hs) == \A n \in hs : LET d == Decide27(n, hs, {}, {}) IN ~Replicates(d) /\ d.del = "none"
-NoTasks(hs) == \A n \in hs : ~Replicates(Decide27(n, hs, {}, {}))
-o\* a check "replicates" when it hands the replicator a task with at least one candidate node. (With overlapping
-\* rules the code as found keeps calling the replicator with an EMPTY candidate list: a holder remembered from
-\* an earlier rule does not lower the shortage of a later rule - a phantom shortage that copies nothing.)
-Replicates(d) == \E k \in 1..Len(d.tasks) : Len(d.tasks[k].nodes) > 0
-Quiet(hs) == \A n \in hs : LET d == Decide27(n, hs, {}, {}) IN ~Replicates(d) /\ d.del = "none"
-NoTasks(hs) == \A n \in hs : ~Replicates(Decide27(n, hs, {}, {}))
-n\* a check "replicates" when it hands the replicator a task with at least one candidate node. (With overlapping
-\* rules the code as found keeps calling the replicator with an EMPTY candidate list: a holder remembered from
-\* an earlier rule does not lower the shortage of a later rule - a phantom shortage that copies nothing.)
-Replicates(d) == \E k \in 1..Len(d.tasks) : Len(d.tasks[k].nodes) > 0
-Quiet(hs) == \A n \in hs : LET d == Decide27(n, hs, {}, {}) IN ~Replicates(d) /\ d.del = "none"
-NoTasks(hs) == \A n \in hs : ~Replicates(Decide27(n, hs, {}, {}))
-t\* a check "replicates" when it hands the replicator a task with at least one candidate node. (With overlapping
-\* rules the code as found keeps calling the replicator with an EMPTY candidate list: a holder remembered from
-\* an earlier rule does not lower the shortage of a later rule - a phantom shortage that copies nothing.)
-Replicates(d) == \E k \in 1..Len(d.tasks) : Len(d.tasks[k].nodes) > 0
-Quiet(hs) == \A n \in hs : LET d == Decide27(n, hs, {}, {}) IN ~Replicates(d) /\ d.del = "none"
-NoTasks(hs) == \A n \in hs : ~Replicates(Decide27(n, hs, {}, {}))
-a\* a check "replicates" when it hands the replicator a task with at least one candidate node. (With overlapping
-\* rules the code as found keeps calling the replicator with an EMPTY candidate list: a holder remembered from
-\* an earlier rule does not lower the shortage of a later rule - a phantom shortage that copies nothing.)
-Replicates(d) == \E k \in 1..Len(d.tasks) : Len(d.tasks[k].nodes) > 0
-Quiet(hs) == \A n \in hs : LET d == Decide27(n, hs, {}, {}) IN ~Replicates(d) /\ d.del = "none"
-NoTasks(hs) == \A n \in hs : ~Replicates(Decide27(n, hs, {}, {}))
-i\* a check "replicates" when it hands the replicator a task with at least one candidate node. (With overlapping
-\* rules the code as found keeps calling the replicator with an EMPTY candidate list: a holder remembered from
-\* an earlier rule does not lower the shortage of a later rule - a phantom shortage that copies nothing.)
-Replicates(d) == \E k \in 1..Len(d.tasks) : Len(d.tasks[k].nodes) > 0
-Quiet(hs) == \A n \in hs : LET d == Decide27(n, hs, {}, {}) IN ~Replicates(d) /\ d.del = "none"
-NoTasks(hs) == \A n \in hs : ~Replicates(Decide27(n, hs, {}, {}))
-n\* a check "replicates" when it hands the replicator a task with at least one candidate node. (With overlapping
-\* rules the code as found keeps calling the replicator with an EMPTY candidate list: a holder remembered from
-\* an earlier rule does not lower the shortage of a later rule - a phantom shortage that copies nothing.)
-Replicates(d) == \E k \in 1..Len(d.tasks) : Len(d.tasks[k].nodes) > 0
-Quiet(hs) == \A n \in hs : LET d == Decide27(n, hs, {}, {}) IN ~Replicates(d) /\ d.del = "none"
-NoTasks(hs) == \A n \in hs : ~Replicates(Decide27(n, hs, {}, {}))
- \* a check "replicates" when it hands the replicator a task with at least one candidate node. (With overlapping
-\* rules the code as found keeps calling the replicator with an EMPTY candidate list: a holder remembered from
-\* an earlier rule does not lower the shortage of a later rule - a phantom shortage that copies nothing.)
-Replicates(d) == \E k \in 1..Len(d.tasks) : Len(d.tasks[k].nodes) > 0
-Quiet(hs) == \A n \in hs : LET d == Decide27(n, hs, {}, {}) IN ~Replicates(d) /\ d.del = "none"
-NoTasks(hs) == \A n \in hs : ~Replicates(Decide27(n, hs, {}, {}))
-a\* a check "replicates" when it hands the replicator a task with at least one candidate node. (With overlapping
-\* rules the code as found keeps calling the replicator with an EMPTY candidate list: a holder remembered from
-\* an earlier rule does not lower the shortage of a later rule - a phantom shortage that copies nothing.)
-Replicates(d) == \E k \in 1..Len(d.tasks) : Len(d.tasks[k].nodes) > 0
-Quiet(hs) == \A n \in hs : LET d == Decide27(n, hs, {}, {}) IN ~Replicates(d) /\ d.del = "none"
-NoTasks(hs) == \A n \in hs : ~Replicates(Decide27(n, hs, {}, {}))
-l\* a check "replicates" when it hands the replicator a task with at least one candidate node. (With overlapping
-\* rules the code as found keeps calling the replicator with an EMPTY candidate list: a holder remembered from
-\* an earlier rule does not lower the shortage of a later rule - a phantom shortage that copies nothing.)
-Replicates(d) == \E k \in 1..Len(d.tasks) : Len(d.tasks[k].nodes) > 0
-Quiet(hs) == \A n \in hs : LET d == Decide27(n, hs, {}, {}) IN ~Replicates(d) /\ d.del = "none"
-NoTasks(hs) == \A n \in hs : ~Replicates(Decide27(n, hs, {}, {}))
-l\* a check "replicates" when it hands the replicator a task with at least one candidate node. (With overlapping
-\* rules the code as found keeps calling the replicator with an EMPTY candidate list: a holder remembered from
-\* an earlier rule does not lower the shortage of a later rule - a phantom shortage that copies nothing.)
-Replicates(d) == \E k \in 1..Len(d.tasks) : Len(d.tasks[k].nodes) > 0
-Quiet(hs) == \A n \in hs : LET d == Decide27(n, hs, {}, {}) IN ~Replicates(d) /\ d.del = "none"
-NoTasks(hs) == \A n \in hs : ~Replicates(Decide27(n, hs, {}, {}))
- \* a check "replicates" when it hands the replicator a task with at least one candidate node. (With overlapping
-\* rules the code as found keeps calling the replicator with an EMPTY candidate list: a holder remembered from
-\* an earlier rule does not lower the shortage of a later rule - a phantom shortage that copies nothing.)
-Replicates(d) == \E k \in 1..Len(d.tasks) : Len(d.tasks[k].nodes) > 0
-Quiet(hs) == \A n \in hs : LET d == Decide27(n, hs, {}, {}) IN ~Replicates(d) /\ d.del = "none"
-NoTasks(hs) == \A n \in hs : ~Replicates(Decide27(n, hs, {}, {}))
-n\* a check "replicates" when it hands the replicator a task with at least one candidate node. (With overlapping
-\* rules the code as found keeps calling the replicator with an EMPTY candidate list: a holder remembered from
-\* an earlier rule does not lower the shortage of a later rule - a phantom shortage that copies nothing.)
-Replicates(d) == \E k \in 1..Len(d.tasks) : Len(d.tasks[k].nodes) > 0
-Quiet(hs) == \A n \in hs : LET d == Decide27(n, hs, {}, {}) IN ~Replicates(d) /\ d.del = "none"
-NoTasks(hs) == \A n \in hs : ~Replicates(Decide27(n, hs, {}, {}))
-o\* a check "replicates" when it hands the replicator a task with at least one candidate node. (With overlapping
-\* rules the code as found keeps calling the replicator with an EMPTY candidate list: a holder remembered from
-\* an earlier rule does not lower the shortage of a later rule - a phantom shortage that copies nothing.)
-Replicates(d) == \E k \in 1..Len(d.tasks) : Len(d.tasks[k].nodes) > 0
-Quiet(hs) == \A n \in hs : LET d == Decide27(n, hs, {}, {}) IN ~Replicates(d) /\ d.del = "none"
-NoTasks(hs) == \A n \in hs : ~Replicates(Decide27(n, hs, {}, {}))
-d\* a check "replicates" when it hands the replicator a task with at least one candidate node. (With overlapping
-\* rules the code as found keeps calling the replicator with an EMPTY candidate list: a holder remembered from
-\* an earlier rule does not lower the shortage of a later rule - a phantom shortage that copies nothing.)
-Replicates(d) == \E k \in 1..Len(d.tasks) : Len(d.tasks[k].nodes) > 0
-Quiet(hs) == \A n \in hs : LET d == Decide27(n, hs, {}, {}) IN ~Replicates(d) /\ d.del = "none"
-NoTasks(hs) == \A n \in hs : ~Replicates(Decide27(n, hs, {}, {}))
-e\* a check "replicates" when it hands the replicator a task with at least one candidate node. (With overlapping
-\* rules the code as found keeps calling the replicator with an EMPTY candidate list: a holder remembered from
-\* an earlier rule does not lower the shortage of a later rule - a phantom shortage that copies nothing.)
-Replicates(d) == \E k \in 1..Len(d.tasks) : Len(d.tasks[k].nodes) > 0
-Quiet(hs) == \A n \in hs : LET d == Decide27(n, hs, {}, {}) IN ~Replicates(d) /\ d.del = "none"
-NoTasks(hs) == \A n \in hs : ~Replicates(Decide27(n, hs, {}, {}))
-s\* a check "replicates" when it hands the replicator a task with at least one candidate node. (With overlapping
-\* rules the code as found keeps calling the replicator with an EMPTY candidate list: a holder remembered from
-\* an earlier rule does not lower the shortage of a later rule - a phantom shortage that copies nothing.)
-Replicates(d) == \E k \in 1..Len(d.tasks) : Len(d.tasks[k].nodes) > 0
-Quiet(hs) == \A n \in hs : LET d == Decide27(n, hs, {}, {}) IN ~Replicates(d) /\ d.del = "none"
-NoTasks(hs) == \A n \in hs : ~Replicates(Decide27(n, hs, {}, {}))
-:\* a check "replicates" when it hands the replicator a task with at least one candidate node. (With overlapping
-\* rules the code as found keeps calling the replicator with an EMPTY candidate list: a holder remembered from
-\* an earlier rule does not lower the shortage of a later rule - a phantom shortage that copies nothing.)
-Replicates(d) == \E k \in 1..Len(d.tasks) : Len(d.tasks[k].nodes) > 0
-Quiet(hs) == \A n \in hs : LET d == Decide27(n, hs, {}, {}) IN ~Replicates(d) /\ d.del = "none"
-NoTasks(hs) == \A n \in hs : ~Replicates(Decide27(n, hs, {}, {}))
- \* a check "replicates" when it hands the replicator a task with at least one candidate node. (With overlapping
-\* rules the code as found keeps calling the replicator with an EMPTY candidate list: a holder remembered from
-\* an earlier rule does not lower the shortage of a later rule - a phantom shortage that copies nothing.)
-Replicates(d) == \E k \in 1..Len(d.tasks) : Len(d.tasks[k].nodes) > 0
-Quiet(hs) == \A n \in hs : LET d == Decide27(n, hs, {}, {}) IN ~Replicates(d) /\ d.del = "none"
-NoTasks(hs) == \A n \in hs : ~Replicates(Decide27(n, hs, {}, {}))
-a\* a check "replicates" when it hands the replicator a task with at least one candidate node. (With overlapping
-\* rules the code as found keeps calling the replicator with an EMPTY candidate list: a holder remembered from
-\* an earlier rule does not lower the shortage of a later rule - a phantom shortage that copies nothing.)
-Replicates(d) == \E k \in 1..Len(d.tasks) : Len(d.tasks[k].nodes) > 0
-Quiet(hs) == \A n \in hs : LET d == Decide27(n, hs, {}, {}) IN ~Replicates(d) /\ d.del = "none"
-NoTasks(hs) == \A n \in hs : ~Replicates(Decide27(n, hs, {}, {}))
- \* a check "replicates" when it hands the replicator a task with at least one candidate node. (With overlapping
-\* rules the code as found keeps calling the replicator with an EMPTY candidate list: a holder remembered from
-\* an earlier rule does not lower the shortage of a later rule - a phantom shortage that copies nothing.)
-Replicates(d) == \E k \in 1..Len(d.tasks) : Len(d.tasks[k].nodes) > 0
-Quiet(hs) == \A n \in hs : LET d == Decide27(n, hs, {}, {}) IN ~Replicates(d) /\ d.del = "none"
-NoTasks(hs) == \A n \in hs : ~Replicates(Decide27(n, hs, {}, {}))
-n\* a check "replicates" when it hands the replicator a task with at least one candidate node. (With overlapping
-\* rules the code as found keeps calling the replicator with an EMPTY candidate list: a holder remembered from
-\* an earlier rule does not lower the shortage of a later rule - a phantom shortage that copies nothing.)
-Replicates(d) == \E k \in 1..Len(d.tasks) : Len(d.tasks[k].nodes) > 0
-Quiet(hs) == \A n \in hs : LET d == Decide27(n, hs, {}, {}) IN ~Replicates(d) /\ d.del = "none"
-NoTasks(hs) == \A n \in hs : ~Replicates(Decide27(n, hs, {}, {}))
-o\* a check "replicates" when it hands the replicator a task with at least one candidate node. (With overlapping
-\* rules the code as found keeps calling the replicator with an EMPTY candidate list: a holder remembered from
-\* an earlier rule does not lower the shortage of a later rule - a phantom shortage that copies nothing.)
-Replicates(d) == \E k \in 1..Len(d.tasks) : Len(d.tasks[k].nodes) > 0
-Quiet(hs) == \A n \in hs : LET d == Decide27(n, hs, {}, {}) IN ~Replicates(d) /\ d.del = "none"
-NoTasks(hs) == \A n \in hs : ~Replicates(Decide27(n, hs, {}, {}))
-d\* a check "replicates" when it hands the replicator a task with at least one candidate node. (With overlapping
-\* rules the code as found keeps calling the replicator with an EMPTY candidate list: a holder remembered from
-\* an earlier rule does not lower the shortage of a later rule - a phantom shortage that copies nothing.)
-Replicates(d) == \E k \in 1..Len(d.tasks) : Len(d.tasks[k].nodes) > 0
-Quiet(hs) == \A n \in hs : LET d == Decide27(n, hs, {}, {}) IN ~Replicates(d) /\ d.del = "none"
-NoTasks(hs) == \A n \in hs : ~Replicates(Decide27(n, hs, {}, {}))
-e\* a check "replicates" when it hands the replicator a task with at least one candidate node. (With overlapping
-\* rules the code as found keeps calling the replicator with an EMPTY candidate list: a holder remembered from
-\* an earlier rule does not lower the shortage of a later rule - a phantom shortage that copies nothing.)
-Replicates(d) == \E k \in 1..Len(d.tasks) : Len(d.tasks[k].nodes) > 0
-Quiet(hs) == \A n \in hs : LET d == Decide27(n, hs, {}, {}) IN ~Replicates(d) /\ d.del = "none"
-NoTasks(hs) == \A n \in hs : ~Replicates(Decide27(n, hs, {}, {}))
- \* a check "replicates" when it hands the replicator a task with at least one candidate node. (With overlapping
-\* rules the code as found keeps calling the replicator with an EMPTY candidate list: a holder remembered from
-\* an earlier rule does not lower the shortage of a later rule - a phantom shortage that copies nothing.)
-Replicates(d) == \E k \in 1..Len(d.tasks) : Len(d.tasks[k].nodes) > 0
-Quiet(hs) == \A n \in hs : LET d == Decide27(n, hs, {}, {}) IN ~Replicates(d) /\ d.del = "none"
-NoTasks(hs) == \A n \in hs : ~Replicates(Decide27(n, hs, {}, {}))
-o\* a check "replicates" when it hands the replicator a task with at least one candidate node. (With overlapping
-\* rules the code as found keeps calling the replicator with an EMPTY candidate list: a holder remembered from
-\* an earlier rule does not lower the shortage of a later rule - a phantom shortage that copies nothing.)
-Replicates(d) == \E k \in 1..Len(d.tasks) : Len(d.tasks[k].nodes) > 0
-Quiet(hs) == \A n \in hs : LET d == Decide27(n, hs, {}, {}) IN ~Replicates(d) /\ d.del = "none"
-NoTasks(hs) == \A n \in hs : ~Replicates(Decide27(n, hs, {}, {}))
-u\* a check "replicates" when it hands the replicator a task with at least one candidate node. (With overlapping
-\* rules the code as found keeps calling the replicator with an EMPTY candidate list: a holder remembered from
-\* an earlier rule does not lower the shortage of a later rule - a phantom shortage that copies nothing.)
-Replicates(d) == \E k \in 1..Len(d.tasks) : Len(d.tasks[k].nodes) > 0
-Quiet(hs) == \A n \in hs : LET d == Decide27(n, hs, {}, {}) IN ~Replicates(d) /\ d.del = "none"
-NoTasks(hs) == \A n \in hs : ~Replicates(Decide27(n, hs, {}, {}))
-t\* a check "replicates" when it hands the replicator a task with at least one candidate node. (With overlapping
-\* rules the code as found keeps calling the replicator with an EMPTY candidate list: a holder remembered from
-\* an earlier rule does not lower the shortage of a later rule - a phantom shortage that copies nothing.)
-Replicates(d) == \E k \in 1..Len(d.tasks) : Len(d.tasks[k].nodes) > 0
-Quiet(hs) == \A n \in hs : LET d == Decide27(n, hs, {}, {}) IN ~Replicates(d) /\ d.del = "none"
-NoTasks(hs) == \A n \in hs : ~Replicates(Decide27(n, hs, {}, {}))
-s\* a check "replicates" when it hands the replicator a task with at least one candidate node. (With overlapping
-\* rules the code as found keeps calling the replicator with an EMPTY candidate list: a holder remembered from
-\* an earlier rule does not lower the shortage of a later rule - a phantom shortage that copies nothing.)
-Replicates(d) == \E k \in 1..Len(d.tasks) : Len(d.tasks[k].nodes) > 0
-Quiet(hs) == \A n \in hs : LET d == Decide27(n, hs, {}, {}) IN ~Replicates(d) /\ d.del = "none"
-NoTasks(hs) == \A n \in hs : ~Replicates(Decide27(n, hs, {}, {}))
-i\* a check "replicates" when it hands the replicator a task with at least one candidate node. (With overlapping
-\* rules the code as found keeps calling the replicator with an EMPTY candidate list: a holder remembered from
-\* an earlier rule does not lower the shortage of a later rule - a phantom shortage that copies nothing.)
-Replicates(d) == \E k \in 1..Len(d.tasks) : Len(d.tasks[k].nodes) > 0
-Quiet(hs) == \A n \in hs : LET d == Decide27(n, hs, {}, {}) IN ~Replicates(d) /\ d.del = "none"
-NoTasks(hs) == \A n \in hs : ~Replicates(Decide27(n, hs, {}, {}))
-d\* a check "replicates" when it hands the replicator a task with at least one candidate node. (With overlapping
-\* rules the code as found keeps calling the replicator with an EMPTY candidate list: a holder remembered from
-\* an earlier rule does not lower the shortage of a later rule - a phantom shortage that copies nothing.)
-Replicates(d) == \E k \in 1..Len(d.tasks) : Len(d.tasks[k].nodes) > 0
-Quiet(hs) == \A n \in hs : LET d == Decide27(n, hs, {}, {}) IN ~Replicates(d) /\ d.del = "none"
-NoTasks(hs) == \A n \in hs : ~Replicates(Decide27(n, hs, {}, {}))
-e\* a check "replicates" when it hands the replicator a task with at least one candidate node. (With overlapping
-\* rules the code as found keeps calling the replicator with an EMPTY candidate list: a holder remembered from
-\* an earlier rule does not lower the shortage of a later rule - a phantom shortage that copies nothing.)
-Replicates(d) == \E k \in 1..Len(d.tasks) : Len(d.tasks[k].nodes) > 0
-Quiet(hs) == \A n \in hs : LET d == Decide27(n, hs, {}, {}) IN ~Replicates(d) /\ d.del = "none"
-NoTasks(hs) == \A n \in hs : ~Replicates(Decide27(n, hs, {}, {}))
- \* a check "replicates" when it hands the replicator a task with at least one candidate node. (With overlapping
-\* rules the code as found keeps calling the replicator with an EMPTY candidate list: a holder remembered from
-\* an earlier rule does not lower the shortage of a later rule - a phantom shortage that copies nothing.)
-Replicates(d) == \E k \in 1..Len(d.tasks) : Len(d.tasks[k].nodes) > 0
-Quiet(hs) == \A n \in hs : LET d == Decide27(n, hs, {}, {}) IN ~Replicates(d) /\ d.del = "none"
-NoTasks(hs) == \A n \in hs : ~Replicates(Decide27(n, hs, {}, {}))
-e\* a check "replicates" when it hands the replicator a task with at least one candidate node. (With overlapping
-\* rules the code as found keeps calling the replicator with an EMPTY candidate list: a holder remembered from
-\* an earlier rule does not lower the shortage of a later rule - a phantom shortage that copies nothing.)
-Replicates(d) == \E k \in 1..Len(d.tasks) : Len(d.tasks[k].nodes) > 0
-Quiet(hs) == \A n \in hs : LET d == Decide27(n, hs, {}, {}) IN ~Replicates(d) /\ d.del = "none"
-NoTasks(hs) == \A n \in hs : ~Replicates(Decide27(n, hs, {}, {}))
-v\* a check "replicates" when it hands the replicator a task with at least one candidate node. (With overlapping
-\* rules the code as found keeps calling the replicator with an EMPTY candidate list: a holder remembered from
-\* an earlier rule does not lower the shortage of a later rule - a phantom shortage that copies nothing.)
-Replicates(d) == \E k \in 1..Len(d.tasks) : Len(d.tasks[k].nodes) > 0
-Quiet(hs) == \A n \in hs : LET d == Decide27(n, hs, {}, {}) IN ~Replicates(d) /\ d.del = "none"
-NoTasks(hs) == \A n \in hs : ~Replicates(Decide27(n, hs, {}, {}))
-e\* a check "replicates" when it hands the replicator a task with at least one candidate node. (With overlapping
-\* rules the code as found keeps calling the replicator with an EMPTY candidate list: a holder remembered from
-\* an earlier rule does not lower the shortage of a later rule - a phantom shortage that copies nothing.)
-Replicates(d) == \E k \in 1..Len(d.tasks) : Len(d.tasks[k].nodes) > 0
-Quiet(hs) == \A n \in hs : LET d == Decide27(n, hs, {}, {}) IN ~Replicates(d) /\ d.del = "none"
-NoTasks(hs) == \A n \in hs : ~Replicates(Decide27(n, hs, {}, {}))
-r\* a check "replicates" when it hands the replicator a task with at least one candidate node. (With overlapping
-\* rules the code as found keeps calling the replicator with an EMPTY candidate list: a holder remembered from
-\* an earlier rule does not lower the shortage of a later rule - a phantom shortage that copies nothing.)
-Replicates(d) == \E k \in 1..Len(d.tasks) : Len(d.tasks[k].nodes) > 0
-Quiet(hs) == \A n \in hs : LET d == Decide27(n, hs, {}, {}) IN ~Replicates(d) /\ d.del = "none"
-NoTasks(hs) == \A n \in hs : ~Replicates(Decide27(n, hs, {}, {}))
-y\* a check "replicates" when it hands the replicator a task with at least one candidate node. (With overlapping
-\* rules the code as found keeps calling the replicator with an EMPTY candidate list: a holder remembered from
-\* an earlier rule does not lower the shortage of a later rule - a phantom shortage that copies nothing.)
-Replicates(d) == \E k \in 1..Len(d.tasks) : Len(d.tasks[k].nodes) > 0
-Quiet(hs) == \A n \in hs : LET d == Decide27(n, hs, {}, {}) IN ~Replicates(d) /\ d.del = "none"
-NoTasks(hs) == \A n \in hs : ~Replicates(Decide27(n, hs, {}, {}))
- \* a check "replicates" when it hands the replicator a task with at least one candidate node. (With overlapping
-\* rules the code as found keeps calling the replicator with an EMPTY candidate list: a holder remembered from
-\* an earlier rule does not lower the shortage of a later rule - a phantom shortage that copies nothing.)
-Replicates(d) == \E k \in 1..Len(d.tasks) : Len(d.tasks[k].nodes) > 0
-Quiet(hs) == \A n \in hs : LET d == Decide27(n, hs, {}, {}) IN ~Replicates(d) /\ d.del = "none"
-NoTasks(hs) == \A n \in hs : ~Replicates(Decide27(n, hs, {}, {}))
-l\* a check "replicates" when it hands the replicator a task with at least one candidate node. (With overlapping
-\* rules the code as found keeps calling the replicator with an EMPTY candidate list: a holder remembered from
-\* an earlier rule does not lower the shortage of a later rule - a phantom shortage that copies nothing.)
-Replicates(d) == \E k \in 1..Len(d.tasks) : Len(d.tasks[k].nodes) > 0
-Quiet(hs) == \A n \in hs : LET d == Decide27(n, hs, {}, {}) IN ~Replicates(d) /\ d.del = "none"
-NoTasks(hs) == \A n \in hs : ~Replicates(Decide27(n, hs, {}, {}))
-i\* a check "replicates" when it hands the replicator a task with at least one candidate node. (With overlapping
-\* rules the code as found keeps calling the replicator with an EMPTY candidate list: a holder remembered from
-\* an earlier rule does not lower the shortage of a later rule - a phantom shortage that copies nothing.)
-Replicates(d) == \E k \in 1..Len(d.tasks) : Len(d.tasks[k].nodes) > 0
-Quiet(hs) == \A n \in hs : LET d == Decide27(n, hs, {}, {}) IN ~Replicates(d) /\ d.del = "none"
-NoTasks(hs) == \A n \in hs : ~Replicates(Decide27(n, hs, {}, {}))
-s\* a check "replicates" when it hands the replicator a task with at least one candidate node. (With overlapping
-\* rules the code as found keeps calling the replicator with an EMPTY candidate list: a holder remembered from
-\* an earlier rule does not lower the shortage of a later rule - a phantom shortage that copies nothing.)
-Replicates(d) == \E k \in 1..Len(d.tasks) : Len(d.tasks[k].nodes) > 0
-Quiet(hs) == \A n \in hs : LET d == Decide27(n, hs, {}, {}) IN ~Replicates(d) /\ d.del = "none"
-NoTasks(hs) == \A n \in hs : ~Replicates(Decide27(n, hs, {}, {}))
-t\* a check "replicates" when it hands the replicator a task with at least one candidate node. (With overlapping
-\* rules the code as found keeps calling the replicator with an EMPTY candidate list: a holder remembered from
-\* an earlier rule does not lower the shortage of a later rule - a phantom shortage that copies nothing.)
-Replicates(d) == \E k \in 1..Len(d.tasks) : Len(d.tasks[k].nodes) > 0
-Quiet(hs) == \A n \in hs : LET d == Decide27(n, hs, {}, {}) IN ~Replicates(d) /\ d.del = "none"
-NoTasks(hs) == \A n \in hs : ~Replicates(Decide27(n, hs, {}, {}))
- \* a check "replicates" when it hands the replicator a task with at least one candidate node. (With overlapping
-\* rules the code as found keeps calling the replicator with an EMPTY candidate list: a holder remembered from
-\* an earlier rule does not lower the shortage of a later rule - a phantom shortage that copies nothing.)
-Replicates(d) == \E k \in 1..Len(d.tasks) : Len(d.tasks[k].nodes) > 0
-Quiet(hs) == \A n \in hs : LET d == Decide27(n, hs, {}, {}) IN ~Replicates(d) /\ d.del = "none"
-NoTasks(hs) == \A n \in hs : ~Replicates(Decide27(n, hs, {}, {}))
-m\* a check "replicates" when it hands the replicator a task with at least one candidate node. (With overlapping
-\* rules the code as found keeps calling the replicator with an EMPTY candidate list: a holder remembered from
-\* an earlier rule does not lower the shortage of a later rule - a phantom shortage that copies nothing.)
-Replicates(d) == \E k \in 1..Len(d.tasks) : Len(d.tasks[k].nodes) > 0
-Quiet(hs) == \A n \in hs : LET d == Decide27(n, hs, {}, {}) IN ~Replicates(d) /\ d.del = "none"
-NoTasks(hs) == \A n \in hs : ~Replicates(Decide27(n, hs, {}, {}))
-a\* a check "replicates" when it hands the replicator a task with at least one candidate node. (With overlapping
-\* rules the code as found keeps calling the replicator with an EMPTY candidate list: a holder remembered from
-\* an earlier rule does not lower the shortage of a later rule - a phantom shortage that copies nothing.)
-Replicates(d) == \E k \in 1..Len(d.tasks) : Len(d.tasks[k].nodes) > 0
-Quiet(hs) == \A n \in hs : LET d == Decide27(n, hs, {}, {}) IN ~Replicates(d) /\ d.del = "none"
-NoTasks(hs) == \A n \in hs : ~Replicates(Decide27(n, hs, {}, {}))
-y\* a check "replicates" when it hands the replicator a task with at least one candidate node. (With overlapping
-\* rules the code as found keeps calling the replicator with an EMPTY candidate list: a holder remembered from
-\* an earlier rule does not lower the shortage of a later rule - a phantom shortage that copies nothing.)
-Replicates(d) == \E k \in 1..Len(d.tasks) : Len(d.tasks[k].nodes) > 0
-Quiet(hs) == \A n \in hs : LET d == Decide27(n, hs, {}, {}) IN ~Replicates(d) /\ d.del = "none"
-NoTasks(hs) == \A n \in hs : ~Replicates(Decide27(n, hs, {}, {}))
- \* a check "replicates" when it hands the replicator a task with at least one candidate node. (With overlapping
-\* rules the code as found keeps calling the replicator with an EMPTY candidate list: a holder remembered from
-\* an earlier rule does not lower the shortage of a later rule - a phantom shortage that copies nothing.)
-Replicates(d) == \E k \in 1..Len(d.tasks) : Len(d.tasks[k].nodes) > 0
-Quiet(hs) == \A n \in hs : LET d == Decide27(n, hs, {}, {}) IN ~Replicates(d) /\ d.del = "none"
-NoTasks(hs) == \A n \in hs : ~Replicates(Decide27(n, hs, {}, {}))
-s\* a check "replicates" when it hands the replicator a task with at least one candidate node. (With overlapping
-\* rules the code as found keeps calling the replicator with an EMPTY candidate list: a holder remembered from
-\* an earlier rule does not lower the shortage of a later rule - a phantom shortage that copies nothing.)
-Replicates(d) == \E k \in 1..Len(d.tasks) : Len(d.tasks[k].nodes) > 0
-Quiet(hs) == \A n \in hs : LET d == Decide27(n, hs, {}, {}) IN ~Replicates(d) /\ d.del = "none"
-NoTasks(hs) == \A n \in hs : ~Replicates(Decide27(n, hs, {}, {}))
-t\* a check "replicates" when it hands the replicator a task with at least one candidate node. (With overlapping
-\* rules the code as found keeps calling the replicator with an EMPTY candidate list: a holder remembered from
-\* an earlier rule does not lower the shortage of a later rule - a phantom shortage that copies nothing.)
-Replicates(d) == \E k \in 1..Len(d.tasks) : Len(d.tasks[k].nodes) > 0
-Quiet(hs) == \A n \in hs : LET d == Decide27(n, hs, {}, {}) IN ~Replicates(d) /\ d.del = "none"
-NoTasks(hs) == \A n \in hs : ~Replicates(Decide27(n, hs, {}, {}))
-i\* a check "replicates" when it hands the replicator a task with at least one candidate node. (With overlapping
-\* rules the code as found keeps calling the replicator with an EMPTY candidate list: a holder remembered from
-\* an earlier rule does not lower the shortage of a later rule - a phantom shortage that copies nothing.)
-Replicates(d) == \E k \in 1..Len(d.tasks) : Len(d.tasks[k].nodes) > 0
-Quiet(hs) == \A n \in hs : LET d == Decide27(n, hs, {}, {}) IN ~Replicates(d) /\ d.del = "none"
-NoTasks(hs) == \A n \in hs : ~Replicates(Decide27(n, hs, {}, {}))
-l\* a check "replicates" when it hands the replicator a task with at least one candidate node. (With overlapping
-\* rules the code as found keeps calling the replicator with an EMPTY candidate list: a holder remembered from
-\* an earlier rule does not lower the shortage of a later rule - a phantom shortage that copies nothing.)
-Replicates(d) == \E k \in 1..Len(d.tasks) : Len(d.tasks[k].nodes) > 0
-Quiet(hs) == \A n \in hs : LET d == Decide27(n, hs, {}, {}) IN ~Replicates(d) /\ d.del = "none"
-NoTasks(hs) == \A n \in hs : ~Replicates(Decide27(n, hs, {}, {}))
-l\* a check "replicates" when it hands the replicator a task with at least one candidate node. (With overlapping
-\* rules the code as found keeps calling the replicator with an EMPTY candidate list: a holder remembered from
-\* an earlier rule does not lower the shortage of a later rule - a phantom shortage that copies nothing.)
-Replicates(d) == \E k \in 1..Len(d.tasks) : Len(d.tasks[k].nodes) > 0
-Quiet(hs) == \A n \in hs : LET d == Decide27(n, hs, {}, {}) IN ~Replicates(d) /\ d.del = "none"
-NoTasks(hs) == \A n \in hs : ~Replicates(Decide27(n, hs, {}, {}))
- \* a check "replicates" when it hands the replicator a task with at least one candidate node. (With overlapping
-\* rules the code as found keeps calling the replicator with an EMPTY candidate list: a holder remembered from
-\* an earlier rule does not lower the shortage of a later rule - a phantom shortage that copies nothing.)
-Replicates(d) == \E k \in 1..Len(d.tasks) : Len(d.tasks[k].nodes) > 0
-Quiet(hs) == \A n \in hs : LET d == Decide27(n, hs, {}, {}) IN ~Replicates(d) /\ d.del = "none"
-NoTasks(hs) == \A n \in hs : ~Replicates(Decide27(n, hs, {}, {}))
-h\* a check "replicates" when it hands the replicator a task with at least one candidate node. (With overlapping
-\* rules the code as found keeps calling the replicator with an EMPTY candidate list: a holder remembered from
-\* an earlier rule does not lower the shortage of a later rule - a phantom shortage that copies nothing.)
-Replicates(d) == \E k \in 1..Len(d.tasks) : Len(d.tasks[k].nodes) > 0
-Quiet(hs) == \A n \in hs : LET d == Decide27(n, hs, {}, {}) IN ~Replicates(d) /\ d.del = "none"
-NoTasks(hs) == \A n \in hs : ~Replicates(Decide27(n, hs, {}, {}))
-o\* a check "replicates" when it hands the replicator a task with at least one candidate node. (With overlapping
-\* rules the code as found keeps calling the replicator with an EMPTY candidate list: a holder remembered from
-\* an earlier rule does not lower the shortage of a later rule - a phantom shortage that copies nothing.)
-Replicates(d) == \E k \in 1..Len(d.tasks) : Len(d.tasks[k].nodes) > 0
-Quiet(hs) == \A n \in hs : LET d == Decide27(n, hs, {}, {}) IN ~Replicates(d) /\ d.del = "none"
-NoTasks(hs) == \A n \in hs : ~Replicates(Decide27(n, hs, {}, {}))
-l\* a check "replicates" when it hands the replicator a task with at least one candidate node. (With overlapping
-\* rules the code as found keeps calling the replicator with an EMPTY candidate list: a holder remembered from
-\* an earlier rule does not lower the shortage of a later rule - a phantom shortage that copies nothing.)
-Replicates(d) == \E k \in 1..Len(d.tasks) : Len(d.tasks[k].nodes) > 0
-Quiet(hs) == \A n \in hs : LET d == Decide27(n, hs, {}, {}) IN ~Replicates(d) /\ d.del = "none"
-NoTasks(hs) == \A n \in hs : ~Replicates(Decide27(n, hs, {}, {}))
-d\* a check "replicates" when it hands the replicator a task with at least one candidate node. (With overlapping
-\* rules the code as found keeps calling the replicator with an EMPTY candidate list: a holder remembered from
-\* an earlier rule does not lower the shortage of a later rule - a phantom shortage that copies nothing.)
-Replicates(d) == \E k \in 1..Len(d.tasks) : Len(d.tasks[k].nodes) > 0
-Quiet(hs) == \A n \in hs : LET d == Decide27(n, hs, {}, {}) IN ~Replicates(d) /\ d.del = "none"
-NoTasks(hs) == \A n \in hs : ~Replicates(Decide27(n, hs, {}, {}))
- \* a check "replicates" when it hands the replicator a task with at least one candidate node. (With overlapping
-\* rules the code as found keeps calling the replicator with an EMPTY candidate list: a holder remembered from
-\* an earlier rule does not lower the shortage of a later rule - a phantom shortage that copies nothing.)
-Replicates(d) == \E k \in 1..Len(d.tasks) : Len(d.tasks[k].nodes) > 0
-Quiet(hs) == \A n \in hs : LET d == Decide27(n, hs, {}, {}) IN ~Replicates(d) /\ d.del = "none"
-NoTasks(hs) == \A n \in hs : ~Replicates(Decide27(n, hs, {}, {}))
-a\* a check "replicates" when it hands the replicator a task with at least one candidate node. (With overlapping
-\* rules the code as found keeps calling the replicator with an EMPTY candidate list: a holder remembered from
-\* an earlier rule does not lower the shortage of a later rule - a phantom shortage that copies nothing.)
-Replicates(d) == \E k \in 1..Len(d.tasks) : Len(d.tasks[k].nodes) > 0
-Quiet(hs) == \A n \in hs : LET d == Decide27(n, hs, {}, {}) IN ~Replicates(d) /\ d.del = "none"
-NoTasks(hs) == \A n \in hs : ~Replicates(Decide27(n, hs, {}, {}))
- \* a check "replicates" when it hands the replicator a task with at least one candidate node. (With overlapping
-\* rules the code as found keeps calling the replicator with an EMPTY candidate list: a holder remembered from
-\* an earlier rule does not lower the shortage of a later rule - a phantom shortage that copies nothing.)
-Replicates(d) == \E k \in 1..Len(d.tasks) : Len(d.tasks[k].nodes) > 0
-Quiet(hs) == \A n \in hs : LET d == Decide27(n, hs, {}, {}) IN ~Replicates(d) /\ d.del = "none"
-NoTasks(hs) == \A n \in hs : ~Replicates(Decide27(n, hs, {}, {}))
-c\* a check "replicates" when it hands the replicator a task with at least one candidate node. (With overlapping
-\* rules the code as found keeps calling the replicator with an EMPTY candidate list: a holder remembered from
-\* an earlier rule does not lower the shortage of a later rule - a phantom shortage that copies nothing.)
-Replicates(d) == \E k \in 1..Len(d.tasks) : Len(d.tasks[k].nodes) > 0
-Quiet(hs) == \A n \in hs : LET d == Decide27(n, hs, {}, {}) IN ~Replicates(d) /\ d.del = "none"
-NoTasks(hs) == \A n \in hs : ~Replicates(Decide27(n, hs, {}, {}))
-o\* a check "replicates" when it hands the replicator a task with at least one candidate node. (With overlapping
-\* rules the code as found keeps calling the replicator with an EMPTY candidate list: a holder remembered from
-\* an earlier rule does not lower the shortage of a later rule - a phantom shortage that copies nothing.)
-Replicates(d) == \E k \in 1..Len(d.tasks) : Len(d.tasks[k].nodes) > 0
-Quiet(hs) == \A n \in hs : LET d == Decide27(n, hs, {}, {}) IN ~Replicates(d) /\ d.del = "none"
-NoTasks(hs) == \A n \in hs : ~Replicates(Decide27(n, hs, {}, {}))
-p\* a check "replicates" when it hands the replicator a task with at least one candidate node. (With overlapping
-\* rules the code as found keeps calling the replicator with an EMPTY candidate list: a holder remembered from
-\* an earlier rule does not lower the shortage of a later rule - a phantom shortage that copies nothing.)
-Replicates(d) == \E k \in 1..Len(d.tasks) : Len(d.tasks[k].nodes) > 0
-Quiet(hs) == \A n \in hs : LET d == Decide27(n, hs, {}, {}) IN ~Replicates(d) /\ d.del = "none"
-NoTasks(hs) == \A n \in hs : ~Replicates(Decide27(n, hs, {}, {}))
-y\* a check "replicates" when it hands the replicator a task with at least one candidate node. (With overlapping
-\* rules the code as found keeps calling the replicator with an EMPTY candidate list: a holder remembered from
-\* an earlier rule does not lower the shortage of a later rule - a phantom shortage that copies nothing.)
-Replicates(d) == \E k \in 1..Len(d.tasks) : Len(d.tasks[k].nodes) > 0
-Quiet(hs) == \A n \in hs : LET d == Decide27(n, hs, {}, {}) IN ~Replicates(d) /\ d.del = "none"
-NoTasks(hs) == \A n \in hs : ~Replicates(Decide27(n, hs, {}, {}))
-)\* a check "replicates" when it hands the replicator a task with at least one candidate node. (With overlapping
-\* rules the code as found keeps calling the replicator with an EMPTY candidate list: a holder remembered from
-\* an earlier rule does not lower the shortage of a later rule - a phantom shortage that copies nothing.)
-Replicates(d) == \E k \in 1..Len(d.tasks) : Len(d.tasks[k].nodes) > 0
-Quiet(hs) == \A n \in hs : LET d == Decide27(n, hs, {}, {}) IN ~Replicates(d) /\ d.del = "none"
-NoTasks(hs) == \A n \in hs : ~Replicates(Decide27(n, hs, {}, {}))
-.\* a check "replicates" when it hands the replicator a task with at least one candidate node. (With overlapping
-\* rules the code as found keeps calling the replicator with an EMPTY candidate list: a holder remembered from
-\* an earlier rule does not lower the shortage of a later rule - a phantom shortage that copies nothing.)
-Replicates(d) == \E k \in 1..Len(d.tasks) : Len(d.tasks[k].nodes) > 0
-Quiet(hs) == \A n \in hs : LET d == Decide27(n, hs, {}, {}) IN ~Replicates(d) /\ d.del = "none"
-NoTasks(hs) == \A n \in hs : ~Replicates(Decide27(n, hs, {}, {}))
- \* a check "replicates" when it hands the replicator a task with at least one candidate node. (With overlapping
-\* rules the code as found keeps calling the replicator with an EMPTY candidate list: a holder remembered from
-\* an earlier rule does not lower the shortage of a later rule - a phantom shortage that copies nothing.)
-Replicates(d) == \E k \in 1..Len(d.tasks) : Len(d.tasks[k].nodes) > 0
-Quiet(hs) == \A n \in hs : LET d == Decide27(n, hs, {}, {}) IN ~Replicates(d) /\ d.del = "none"
-NoTasks(hs) == \A n \in hs : ~Replicates(Decide27(n, hs, {}, {}))
-`\* a check "replicates" when it hands the replicator a task with at least one candidate node. (With overlapping
-\* rules the code as found keeps calling the replicator with an EMPTY candidate list: a holder remembered from
-\* an earlier rule does not lower the shortage of a later rule - a phantom shortage that copies nothing.)
-Replicates(d) == \E k \in 1..Len(d.tasks) : Len(d.tasks[k].nodes) > 0
-Quiet(hs) == \A n \in hs : LET d == Decide27(n, hs, {}, {}) IN ~Replicates(d) /\ d.del = "none"
-NoTasks(hs) == \A n \in hs : ~Replicates(Decide27(n, hs, {}, {}))
-h\* a check "replicates" when it hands the replicator a task with at least one candidate node. (With overlapping
-\* rules the code as found keeps calling the replicator with an EMPTY candidate list: a holder remembered from
-\* an earlier rule does not lower the shortage of a later rule - a phantom shortage that copies nothing.)
-Replicates(d) == \E k \in 1..Len(d.tasks) : Len(d.tasks[k].nodes) > 0
-Quiet(hs) == \A n \in hs : LET d == Decide27(n, hs, {}, {}) IN ~Replicates(d) /\ d.del = "none"
-NoTasks(hs) == \A n \in hs : ~Replicates(Decide27(n, hs, {}, {}))
-o\* a check "replicates" when it hands the replicator a task with at least one candidate node. (With overlapping
-\* rules the code as found keeps calling the replicator with an EMPTY candidate list: a holder remembered from
-\* an earlier rule does not lower the shortage of a later rule - a phantom shortage that copies nothing.)
-Replicates(d) == \E k \in 1..Len(d.tasks) : Len(d.tasks[k].nodes) > 0
-Quiet(hs) == \A n \in hs : LET d == Decide27(n, hs, {}, {}) IN ~Replicates(d) /\ d.del = "none"
-NoTasks(hs) == \A n \in hs : ~Replicates(Decide27(n, hs, {}, {}))
-l\* a check "replicates" when it hands the replicator a task with at least one candidate node. (With overlapping
-\* rules the code as found keeps calling the replicator with an EMPTY candidate list: a holder remembered from
-\* an earlier rule does not lower the shortage of a later rule - a phantom shortage that copies nothing.)
-Replicates(d) == \E k \in 1..Len(d.tasks) : Len(d.tasks[k].nodes) > 0
-Quiet(hs) == \A n \in hs : LET d == Decide27(n, hs, {}, {}) IN ~Replicates(d) /\ d.del = "none"
-NoTasks(hs) == \A n \in hs : ~Replicates(Decide27(n, hs, {}, {}))
-d\* a check "replicates" when it hands the replicator a task with at least one candidate node. (With overlapping
-\* rules the code as found keeps calling the replicator with an EMPTY candidate list: a holder remembered from
-\* an earlier rule does not lower the shortage of a later rule - a phantom shortage that copies nothing.)
-Replicates(d) == \E k \in 1..Len(d.tasks) : Len(d.tasks[k].nodes) > 0
-Quiet(hs) == \A n \in hs : LET d == Decide27(n, hs, {}, {}) IN ~Replicates(d) /\ d.del = "none"
-NoTasks(hs) == \A n \in hs : ~Replicates(Decide27(n, hs, {}, {}))
-e\* a check "replicates" when it hands the replicator a task with at least one candidate node. (With overlapping
-\* rules the code as found keeps calling the replicator with an EMPTY candidate list: a holder remembered from
-\* an earlier rule does not lower the shortage of a later rule - a phantom shortage that copies nothing.)
-Replicates(d) == \E k \in 1..Len(d.tasks) : Len(d.tasks[k].nodes) > 0
-Quiet(hs) == \A n \in hs : LET d == Decide27(n, hs, {}, {}) IN ~Replicates(d) /\ d.del = "none"
-NoTasks(hs) == \A n \in hs : ~Replicates(Decide27(n, hs, {}, {}))
-r\* a check "replicates" when it hands the replicator a task with at least one candidate node. (With overlapping
-\* rules the code as found keeps calling the replicator with an EMPTY candidate list: a holder remembered from
-\* an earlier rule does not lower the shortage of a later rule - a phantom shortage that copies nothing.)
-Replicates(d) == \E k \in 1..Len(d.tasks) : Len(d.tasks[k].nodes) > 0
-Quiet(hs) == \A n \in hs : LET d == Decide27(n, hs, {}, {}) IN ~Replicates(d) /\ d.del = "none"
-NoTasks(hs) == \A n \in hs : ~Replicates(Decide27(n, hs, {}, {}))
-s\* a check "replicates" when it hands the replicator a task with at least one candidate node. (With overlapping
-\* rules the code as found keeps calling the replicator with an EMPTY candidate list: a holder remembered from
-\* an earlier rule does not lower the shortage of a later rule - a phantom shortage that copies nothing.)
-Replicates(d) == \E k \in 1..Len(d.tasks) : Len(d.tasks[k].nodes) > 0
-Quiet(hs) == \A n \in hs : LET d == Decide27(n, hs, {}, {}) IN ~Replicates(d) /\ d.del = "none"
-NoTasks(hs) == \A n \in hs : ~Replicates(Decide27(n, hs, {}, {}))
-`\* a check "replicates" when it hands the replicator a task with at least one candidate node. (With overlapping
-\* rules the code as found keeps calling the replicator with an EMPTY candidate list: a holder remembered from
-\* an earlier rule does not lower the shortage of a later rule - a phantom shortage that copies nothing.)
-Replicates(d) == \E k \in 1..Len(d.tasks) : Len(d.tasks[k].nodes) > 0
-Quiet(hs) == \A n \in hs : LET d == Decide27(n, hs, {}, {}) IN ~Replicates(d) /\ d.del = "none"
-NoTasks(hs) == \A n \in hs : ~Replicates(Decide27(n, hs, {}, {}))
- \* a check "replicates" when it hands the replicator a task with at least one candidate node. (With overlapping
-\* rules the code as found keeps calling the replicator with an EMPTY candidate list: a holder remembered from
-\* an earlier rule does not lower the shortage of a later rule - a phantom shortage that copies nothing.)
-Replicates(d) == \E k \in 1..Len(d.tasks) : Len(d.tasks[k].nodes) > 0
-Quiet(hs) == \A n \in hs : LET d == Decide27(n, hs, {}, {}) IN ~Replicates(d) /\ d.del = "none"
-NoTasks(hs) == \A n \in hs : ~Replicates(Decide27(n, hs, {}, {}))
-=\* a check "replicates" when it hands the replicator a task with at least one candidate node. (With overlapping
-\* rules the code as found keeps calling the replicator with an EMPTY candidate list: a holder remembered from
-\* an earlier rule does not lower the shortage of a later rule - a phantom shortage that copies nothing.)
-Replicates(d) == \E k \in 1..Len(d.tasks) : Len(d.tasks[k].nodes) > 0
-Quiet(hs) == \A n \in hs : LET d == Decide27(n, hs, {}, {}) IN ~Replicates(d) /\ d.del = "none"
-NoTasks(hs) == \A n \in hs : ~Replicates(Decide27(n, hs, {}, {}))
- \* a check "replicates" when it hands the replicator a task with at least one candidate node. (With overlapping
-\* rules the code as found keeps calling the replicator with an EMPTY candidate list: a holder remembered from
-\* an earlier rule does not lower the shortage of a later rule - a phantom shortage that copies nothing.)
-Replicates(d) == \E k \in 1..Len(d.tasks) : Len(d.tasks[k].nodes) > 0
-Quiet(hs) == \A n \in hs : LET d == Decide27(n, hs, {}, {}) IN ~Replicates(d) /\ d.del = "none"
-NoTasks(hs) == \A n \in hs : ~Replicates(Decide27(n, hs, {}, {}))
-n\* a check "replicates" when it hands the replicator a task with at least one candidate node. (With overlapping
-\* rules the code as found keeps calling the replicator with an EMPTY candidate list: a holder remembered from
-\* an earlier rule does not lower the shortage of a later rule - a phantom shortage that copies nothing.)
-Replicates(d) == \E k \in 1..Len(d.tasks) : Len(d.tasks[k].nodes) > 0
-Quiet(hs) == \A n \in hs : LET d == Decide27(n, hs, {}, {}) IN ~Replicates(d) /\ d.del = "none"
-NoTasks(hs) == \A n \in hs : ~Replicates(Decide27(n, hs, {}, {}))
-o\* a check "replicates" when it hands the replicator a task with at least one candidate node. (With overlapping
-\* rules the code as found keeps calling the replicator with an EMPTY candidate list: a holder remembered from
-\* an earlier rule does not lower the shortage of a later rule - a phantom shortage that copies nothing.)
-Replicates(d) == \E k \in 1..Len(d.tasks) : Len(d.tasks[k].nodes) > 0
-Quiet(hs) == \A n \in hs : LET d == Decide27(n, hs, {}, {}) IN ~Replicates(d) /\ d.del = "none"
-NoTasks(hs) == \A n \in hs : ~Replicates(Decide27(n, hs, {}, {}))
-d\* a check "replicates" when it hands the replicator a task with at least one candidate node. (With overlapping
-\* rules the code as found keeps calling the replicator with an EMPTY candidate list: a holder remembered from
-\* an earlier rule does not lower the shortage of a later rule - a phantom shortage that copies nothing.)
-Replicates(d) == \E k \in 1..Len(d.tasks) : Len(d.tasks[k].nodes) > 0
-Quiet(hs) == \A n \in hs : LET d == Decide27(n, hs, {}, {}) IN ~Replicates(d) /\ d.del = "none"
-NoTasks(hs) == \A n \in hs : ~Replicates(Decide27(n, hs, {}, {}))
-e\* a check "replicates" when it hands the replicator a task with at least one candidate node. (With overlapping
-\* rules the code as found keeps calling the replicator with an EMPTY candidate list: a holder remembered from
-\* an earlier rule does not lower the shortage of a later rule - a phantom shortage that copies nothing.)
-Replicates(d) == \E k \in 1..Len(d.tasks) : Len(d.tasks[k].nodes) > 0
-Quiet(hs) == \A n \in hs : LET d == Decide27(n, hs, {}, {}) IN ~Replicates(d) /\ d.del = "none"
-NoTasks(hs) == \A n \in hs : ~Replicates(Decide27(n, hs, {}, {}))
-s\* a check "replicates" when it hands the replicator a task with at least one candidate node. (With overlapping
-\* rules the code as found keeps calling the replicator with an EMPTY candidate list: a holder remembered from
-\* an earlier rule does not lower the shortage of a later rule - a phantom shortage that copies nothing.)
-Replicates(d) == \E k \in 1..Len(d.tasks) : Len(d.tasks[k].nodes) > 0
-Quiet(hs) == \A n \in hs : LET d == Decide27(n, hs, {}, {}) IN ~Replicates(d) /\ d.del = "none"
-NoTasks(hs) == \A n \in hs : ~Replicates(Decide27(n, hs, {}, {}))
- \* a check "replicates" when it hands the replicator a task with at least one candidate node. (With overlapping
-\* rules the code as found keeps calling the replicator with an EMPTY candidate list: a holder remembered from
-\* an earlier rule does not lower the shortage of a later rule - a phantom shortage that copies nothing.)
-Replicates(d) == \E k \in 1..Len(d.tasks) : Len(d.tasks[k].nodes) > 0
-Quiet(hs) == \A n \in hs : LET d == Decide27(n, hs, {}, {}) IN ~Replicates(d) /\ d.del = "none"
-NoTasks(hs) == \A n \in hs : ~Replicates(Decide27(n, hs, {}, {}))
-t\* a check "replicates" when it hands the replicator a task with at least one candidate node. (With overlapping
-\* rules the code as found keeps calling the replicator with an EMPTY candidate list: a holder remembered from
-\* an earlier rule does not lower the shortage of a later rule - a phantom shortage that copies nothing.)
-Replicates(d) == \E k \in 1..Len(d.tasks) : Len(d.tasks[k].nodes) > 0
-Quiet(hs) == \A n \in hs : LET d == Decide27(n, hs, {}, {}) IN ~Replicates(d) /\ d.del = "none"
-NoTasks(hs) == \A n \in hs : ~Replicates(Decide27(n, hs, {}, {}))
-h\* a check "replicates" when it hands the replicator a task with at least one candidate node. (With overlapping
-\* rules the code as found keeps calling the replicator with an EMPTY candidate list: a holder remembered from
-\* an earlier rule does not lower the shortage of a later rule - a phantom shortage that copies nothing.)
-Replicates(d) == \E k \in 1..Len(d.tasks) : Len(d.tasks[k].nodes) > 0
-Quiet(hs) == \A n \in hs : LET d == Decide27(n, hs, {}, {}) IN ~Replicates(d) /\ d.del = "none"
-NoTasks(hs) == \A n \in hs : ~Replicates(Decide27(n, hs, {}, {}))
-a\* a check "replicates" when it hands the replicator a task with at least one candidate node. (With overlapping
-\* rules the code as found keeps calling the replicator with an EMPTY candidate list: a holder remembered from
-\* an earlier rule does not lower the shortage of a later rule - a phantom shortage that copies nothing.)
-Replicates(d) == \E k \in 1..Len(d.tasks) : Len(d.tasks[k].nodes) > 0
-Quiet(hs) == \A n \in hs : LET d == Decide27(n, hs, {}, {}) IN ~Replicates(d) /\ d.del = "none"
-NoTasks(hs) == \A n \in hs : ~Replicates(Decide27(n, hs, {}, {}))
-t\* a check "replicates" when it hands the replicator a task with at least one candidate node. (With overlapping
-\* rules the code as found keeps calling the replicator with an EMPTY candidate list: a holder remembered from
-\* an earlier rule does not lower the shortage of a later rule - a phantom shortage that copies nothing.)
-Replicates(d) == \E k \in 1..Len(d.tasks) : Len(d.tasks[k].nodes) > 0
-Quiet(hs) == \A n \in hs : LET d == Decide27(n, hs, {}, {}) IN ~Replicates(d) /\ d.del = "none"
-NoTasks(hs) == \A n \in hs : ~Replicates(Decide27(n, hs, {}, {}))
- \* a check "replicates" when it hands the replicator a task with at least one candidate node. (With overlapping
-\* rules the code as found keeps calling the replicator with an EMPTY candidate list: a holder remembered from
-\* an earlier rule does not lower the shortage of a later rule - a phantom shortage that copies nothing.)
-Replicates(d) == \E k \in 1..Len(d.tasks) : Len(d.tasks[k].nodes) > 0
-Quiet(hs) == \A n \in hs : LET d == Decide27(n, hs, {}, {}) IN ~Replicates(d) /\ d.del = "none"
-NoTasks(hs) == \A n \in hs : ~Replicates(Decide27(n, hs, {}, {}))
-s\* a check "replicates" when it hands the replicator a task with at least one candidate node. (With overlapping
-\* rules the code as found keeps calling the replicator with an EMPTY candidate list: a holder remembered from
-\* an earlier rule does not lower the shortage of a later rule - a phantom shortage that copies nothing.)
-Replicates(d) == \E k \in 1..Len(d.tasks) : Len(d.tasks[k].nodes) > 0
-Quiet(hs) == \A n \in hs : LET d == Decide27(n, hs, {}, {}) IN ~Replicates(d) /\ d.del = "none"
-NoTasks(hs) == \A n \in hs : ~Replicates(Decide27(n, hs, {}, {}))
-t\* a check "replicates" when it hands the replicator a task with at least one candidate node. (With overlapping
-\* rules the code as found keeps calling the replicator with an EMPTY candidate list: a holder remembered from
-\* an earlier rule does not lower the shortage of a later rule - a phantom shortage that copies nothing.)
-Replicates(d) == \E k \in 1..Len(d.tasks) : Len(d.tasks[k].nodes) > 0
-Quiet(hs) == \A n \in hs : LET d == Decide27(n, hs, {}, {}) IN ~Replicates(d) /\ d.del = "none"
-NoTasks(hs) == \A n \in hs : ~Replicates(Decide27(n, hs, {}, {}))
-o\* a check "replicates" when it hands the replicator a task with at least one candidate node. (With overlapping
-\* rules the code as found keeps calling the replicator with an EMPTY candidate list: a holder remembered from
-\* an earlier rule does not lower the shortage of a later rule - a phantom shortage that copies nothing.)
-Replicates(d) == \E k \in 1..Len(d.tasks) : Len(d.tasks[k].nodes) > 0
-Quiet(hs) == \A n \in hs : LET d == Decide27(n, hs, {}, {}) IN ~Replicates(d) /\ d.del = "none"
-NoTasks(hs) == \A n \in hs : ~Replicates(Decide27(n, hs, {}, {}))
-r\* a check "replicates" when it hands the replicator a task with at least one candidate node. (With overlapping
-\* rules the code as found keeps calling the replicator with an EMPTY candidate list: a holder remembered from
-\* an earlier rule does not lower the shortage of a later rule - a phantom shortage that copies nothing.)
-Replicates(d) == \E k \in 1..Len(d.tasks) : Len(d.tasks[k].nodes) > 0
-Quiet(hs) == \A n \in hs : LET d == Decide27(n, hs, {}, {}) IN ~Replicates(d) /\ d.del = "none"
-NoTasks(hs) == \A n \in hs : ~Replicates(Decide27(n, hs, {}, {}))
-e\* a check "replicates" when it hands the replicator a task with at least one candidate node. (With overlapping
-\* rules the code as found keeps calling the replicator with an EMPTY candidate list: a holder remembered from
-\* an earlier rule does not lower the shortage of a later rule - a phantom shortage that copies nothing.)
-Replicates(d) == \E k \in 1..Len(d.tasks) : Len(d.tasks[k].nodes) > 0
-Quiet(hs) == \A n \in hs : LET d == Decide27(n, hs, {}, {}) IN ~Replicates(d) /\ d.del = "none"
-NoTasks(hs) == \A n \in hs : ~Replicates(Decide27(n, hs, {}, {}))
- \* a check "replicates" when it hands the replicator a task with at least one candidate node. (With overlapping
-\* rules the code as found keeps calling the replicator with an EMPTY candidate list: a holder remembered from
-\* an earlier rule does not lower the shortage of a later rule - a phantom shortage that copies nothing.)
-Replicates(d) == \E k \in 1..Len(d.tasks) : Len(d.tasks[k].nodes) > 0
-Quiet(hs) == \A n \in hs : LET d == Decide27(n, hs, {}, {}) IN ~Replicates(d) /\ d.del = "none"
-NoTasks(hs) == \A n \in hs : ~Replicates(Decide27(n, hs, {}, {}))
-t\* a check "replicates" when it hands the replicator a task with at least one candidate node. (With overlapping
-\* rules the code as found keeps calling the replicator with an EMPTY candidate list: a holder remembered from
-\* an earlier rule does not lower the shortage of a later rule - a phantom shortage that copies nothing.)
-Replicates(d) == \E k \in 1..Len(d.tasks) : Len(d.tasks[k].nodes) > 0
-Quiet(hs) == \A n \in hs : LET d == Decide27(n, hs, {}, {}) IN ~Replicates(d) /\ d.del = "none"
-NoTasks(hs) == \A n \in hs : ~Replicates(Decide27(n, hs, {}, {}))
-h\* a check "replicates" when it hands the replicator a task with at least one candidate node. (With overlapping
-\* rules the code as found keeps calling the replicator with an EMPTY candidate list: a holder remembered from
-\* an earlier rule does not lower the shortage of a later rule - a phantom shortage that copies nothing.)
-Replicates(d) == \E k \in 1..Len(d.tasks) : Len(d.tasks[k].nodes) > 0
-Quiet(hs) == \A n \in hs : LET d == Decide27(n, hs, {}, {}) IN ~Replicates(d) /\ d.del = "none"
-NoTasks(hs) == \A n \in hs : ~Replicates(Decide27(n, hs, {}, {}))
-e\* a check "replicates" when it hands the replicator a task with at least one candidate node. (With overlapping
-\* rules the code as found keeps calling the replicator with an EMPTY candidate list: a holder remembered from
-\* an earlier rule does not lower the shortage of a later rule - a phantom shortage that copies nothing.)
-Replicates(d) == \E k \in 1..Len(d.tasks) : Len(d.tasks[k].nodes) > 0
-Quiet(hs) == \A n \in hs : LET d == Decide27(n, hs, {}, {}) IN ~Replicates(d) /\ d.del = "none"
-NoTasks(hs) == \A n \in hs : ~Replicates(Decide27(n, hs, {}, {}))
- \* a check "replicates" when it hands the replicator a task with at least one candidate node. (With overlapping
-\* rules the code as found keeps calling the replicator with an EMPTY candidate list: a holder remembered from
-\* an earlier rule does not lower the shortage of a later rule - a phantom shortage that copies nothing.)
-Replicates(d) == \E k \in 1..Len(d.tasks) : Len(d.tasks[k].nodes) > 0
-Quiet(hs) == \A n \in hs : LET d == Decide27(n, hs, {}, {}) IN ~Replicates(d) /\ d.del = "none"
-NoTasks(hs) == \A n \in hs : ~Replicates(Decide27(n, hs, {}, {}))
-o\* a check "replicates" when it hands the replicator a task with at least one candidate node. (With overlapping
-\* rules the code as found keeps calling the replicator with an EMPTY candidate list: a holder remembered from
-\* an earlier rule does not lower the shortage of a later rule - a phantom shortage that copies nothing.)
-Replicates(d) == \E k \in 1..Len(d.tasks) : Len(d.tasks[k].nodes) > 0
-Quiet(hs) == \A n \in hs : LET d == Decide27(n, hs, {}, {}) IN ~Replicates(d) /\ d.del = "none"
-NoTasks(hs) == \A n \in hs : ~Replicates(Decide27(n, hs, {}, {}))
-b\* a check "replicates" when it hands the replicator a task with at least one candidate node. (With overlapping
-\* rules the code as found keeps calling the replicator with an EMPTY candidate list: a holder remembered from
-\* an earlier rule does not lower the shortage of a later rule - a phantom shortage that copies nothing.)
-Replicates(d) == \E k \in 1..Len(d.tasks) : Len(d.tasks[k].nodes) > 0
-Quiet(hs) == \A n \in hs : LET d == Decide27(n, hs, {}, {}) IN ~Replicates(d) /\ d.del = "none"
-NoTasks(hs) == \A n \in hs : ~Replicates(Decide27(n, hs, {}, {}))
-j\* a check "replicates" when it hands the replicator a task with at least one candidate node. (With overlapping
-\* rules the code as found keeps calling the replicator with an EMPTY candidate list: a holder remembered from
-\* an earlier rule does not lower the shortage of a later rule - a phantom shortage that copies nothing.)
-Replicates(d) == \E k \in 1..Len(d.tasks) : Len(d.tasks[k].nodes) > 0
-Quiet(hs) == \A n \in hs : LET d == Decide27(n, hs, {}, {}) IN ~Replicates(d) /\ d.del = "none"
-NoTasks(hs) == \A n \in hs : ~Replicates(Decide27(n, hs, {}, {}))
-e\* a check "replicates" when it hands the replicator a task with at least one candidate node. (With overlapping
-\* rules the code as found keeps calling the replicator with an EMPTY candidate list: a holder remembered from
-\* an earlier rule does not lower the shortage of a later rule - a phantom shortage that copies nothing.)
-Replicates(d) == \E k \in 1..Len(d.tasks) : Len(d.tasks[k].nodes) > 0
-Quiet(hs) == \A n \in hs : LET d == Decide27(n, hs, {}, {}) IN ~Replicates(d) /\ d.del = "none"
-NoTasks(hs) == \A n \in hs : ~Replicates(Decide27(n, hs, {}, {}))
-c\* a check "replicates" when it hands the replicator a task with at least one candidate node. (With overlapping
-\* rules the code as found keeps calling the replicator with an EMPTY candidate list: a holder remembered from
-\* an earlier rule does not lower the shortage of a later rule - a phantom shortage that copies nothing.)
-Replicates(d) == \E k \in 1..Len(d.tasks) : Len(d.tasks[k].nodes) > 0
-Quiet(hs) == \A n \in hs : LET d == Decide27(n, hs, {}, {}) IN ~Replicates(d) /\ d.del = "none"
-NoTasks(hs) == \A n \in hs : ~Replicates(Decide27(n, hs, {}, {}))
-t\* a check "replicates" when it hands the replicator a task with at least one candidate node. (With overlapping
-\* rules the code as found keeps calling the replicator with an EMPTY candidate list: a holder remembered from
-\* an earlier rule does not lower the shortage of a later rule - a phantom shortage that copies nothing.)
-Replicates(d) == \E k \in 1..Len(d.tasks) : Len(d.tasks[k].nodes) > 0
-Quiet(hs) == \A n \in hs : LET d == Decide27(n, hs, {}, {}) IN ~Replicates(d) /\ d.del = "none"
-NoTasks(hs) == \A n \in hs : ~Replicates(Decide27(n, hs, {}, {}))
-.\* a check "replicates" when it hands the replicator a task with at least one candidate node. (With overlapping
-\* rules the code as found keeps calling the replicator with an EMPTY candidate list: a holder remembered from
-\* an earlier rule does not lower the shortage of a later rule - a phantom shortage that copies nothing.)
-Replicates(d) == \E k \in 1..Len(d.tasks) : Len(d.tasks[k].nodes) > 0
-Quiet(hs) == \A n \in hs : LET d == Decide27(n, hs, {}, {}) IN ~Replicates(d) /\ d.del = "none"
-NoTasks(hs) == \A n \in hs : ~Replicates(Decide27(n, hs, {}, {}))
- \* a check "replicates" when it hands the replicator a task with at least one candidate node. (With overlapping
-\* rules the code as found keeps calling the replicator with an EMPTY candidate list: a holder remembered from
-\* an earlier rule does not lower the shortage of a later rule - a phantom shortage that copies nothing.)
-Replicates(d) == \E k \in 1..Len(d.tasks) : Len(d.tasks[k].nodes) > 0
-Quiet(hs) == \A n \in hs : LET d == Decide27(n, hs, {}, {}) IN ~Replicates(d) /\ d.del = "none"
-NoTasks(hs) == \A n \in hs : ~Replicates(Decide27(n, hs, {}, {}))
-O\* a check "replicates" when it hands the replicator a task with at least one candidate node. (With overlapping
-\* rules the code as found keeps calling the replicator with an EMPTY candidate list: a holder remembered from
-\* an earlier rule does not lower the shortage of a later rule - a phantom shortage that copies nothing.)
-Replicates(d) == \E k \in 1..Len(d.tasks) : Len(d.tasks[k].nodes) > 0
-Quiet(hs) == \A n \in hs : LET d == Decide27(n, hs, {}, {}) IN ~Replicates(d) /\ d.del = "none"
-NoTasks(hs) == \A n \in hs : ~Replicates(Decide27(n, hs, {}, {}))
-n\* a check "replicates" when it hands the replicator a task with at least one candidate node. (With overlapping
-\* rules the code as found keeps calling the replicator with an EMPTY candidate list: a holder remembered from
-\* an earlier rule does not lower the shortage of a later rule - a phantom shortage that copies nothing.)
-Replicates(d) == \E k \in 1..Len(d.tasks) : Len(d.tasks[k].nodes) > 0
-Quiet(hs) == \A n \in hs : LET d == Decide27(n, hs, {}, {}) IN ~Replicates(d) /\ d.del = "none"
-NoTasks(hs) == \A n \in hs : ~Replicates(Decide27(n, hs, {}, {}))
-e\* a check "replicates" when it hands the replicator a task with at least one candidate node. (With overlapping
-\* rules the code as found keeps calling the replicator with an EMPTY candidate list: a holder remembered from
-\* an earlier rule does not lower the shortage of a later rule - a phantom shortage that copies nothing.)
-Replicates(d) == \E k \in 1..Len(d.tasks) : Len(d.tasks[k].nodes) > 0
-Quiet(hs) == \A n \in hs : LET d == Decide27(n, hs, {}, {}) IN ~Replicates(d) /\ d.del = "none"
-NoTasks(hs) == \A n \in hs : ~Replicates(Decide27(n, hs, {}, {}))
- \* a check "replicates" when it hands the replicator a task with at least one candidate node. (With overlapping
-\* rules the code as found keeps calling the replicator with an EMPTY candidate list: a holder remembered from
-\* an earlier rule does not lower the shortage of a later rule - a phantom shortage that copies nothing.)
-Replicates(d) == \E k \in 1..Len(d.tasks) : Len(d.tasks[k].nodes) > 0
-Quiet(hs) == \A n \in hs : LET d == Decide27(n, hs, {}, {}) IN ~Replicates(d) /\ d.del = "none"
-NoTasks(hs) == \A n \in hs : ~Replicates(Decide27(n, hs, {}, {}))
-a\* a check "replicates" when it hands the replicator a task with at least one candidate node. (With overlapping
-\* rules the code as found keeps calling the replicator with an EMPTY candidate list: a holder remembered from
-\* an earlier rule does not lower the shortage of a later rule - a phantom shortage that copies nothing.)
-Replicates(d) == \E k \in 1..Len(d.tasks) : Len(d.tasks[k].nodes) > 0
-Quiet(hs) == \A n \in hs : LET d == Decide27(n, hs, {}, {}) IN ~Replicates(d) /\ d.del = "none"
-NoTasks(hs) == \A n \in hs : ~Replicates(Decide27(n, hs, {}, {}))
-c\* a check "replicates" when it hands the replicator a task with at least one candidate node. (With overlapping
-\* rules the code as found keeps calling the replicator with an EMPTY candidate list: a holder remembered from
-\* an earlier rule does not lower the shortage of a later rule - a phantom shortage that copies nothing.)
-Replicates(d) == \E k \in 1..Len(d.tasks) : Len(d.tasks[k].nodes) > 0
-Quiet(hs) == \A n \in hs : LET d == Decide27(n, hs, {}, {}) IN ~Replicates(d) /\ d.del = "none"
-NoTasks(hs) == \A n \in hs : ~Replicates(Decide27(n, hs, {}, {}))
-t\* a check "replicates" when it hands the replicator a task with at least one candidate node. (With overlapping
-\* rules the code as found keeps calling the replicator with an EMPTY candidate list: a holder remembered from
-\* an earlier rule does not lower the shortage of a later rule - a phantom shortage that copies nothing.)
-Replicates(d) == \E k \in 1..Len(d.tasks) : Len(d.tasks[k].nodes) > 0
-Quiet(hs) == \A n \in hs : LET d == Decide27(n, hs, {}, {}) IN ~Replicates(d) /\ d.del = "none"
-NoTasks(hs) == \A n \in hs : ~Replicates(Decide27(n, hs, {}, {}))
-i\* a check "replicates" when it hands the replicator a task with at least one candidate node. (With overlapping
-\* rules the code as found keeps calling the replicator with an EMPTY candidate list: a holder remembered from
-\* an earlier rule does not lower the shortage of a later rule - a phantom shortage that copies nothing.)
-Replicates(d) == \E k \in 1..Len(d.tasks) : Len(d.tasks[k].nodes) > 0
-Quiet(hs) == \A n \in hs : LET d == Decide27(n, hs, {}, {}) IN ~Replicates(d) /\ d.del = "none"
-NoTasks(hs) == \A n \in hs : ~Replicates(Decide27(n, hs, {}, {}))
-o\* a check "replicates" when it hands the replicator a task with at least one candidate node. (With overlapping
-\* rules the code as found keeps calling the replicator with an EMPTY candidate list: a holder remembered from
-\* an earlier rule does not lower the shortage of a later rule - a phantom shortage that copies nothing.)
-Replicates(d) == \E k \in 1..Len(d.tasks) : Len(d.tasks[k].nodes) > 0
-Quiet(hs) == \A n \in hs : LET d == Decide27(n, hs, {}, {}) IN ~Replicates(d) /\ d.del = "none"
-NoTasks(hs) == \A n \in hs : ~Replicates(Decide27(n, hs, {}, {}))
-n\* a check "replicates" when it hands the replicator a task with at least one candidate node. (With overlapping
-\* rules the code as found keeps calling the replicator with an EMPTY candidate list: a holder remembered from
-\* an earlier rule does not lower the shortage of a later rule - a phantom shortage that copies nothing.)
-Replicates(d) == \E k \in 1..Len(d.tasks) : Len(d.tasks[k].nodes) > 0
-Quiet(hs) == \A n \in hs : LET d == Decide27(n, hs, {}, {}) IN ~Replicates(d) /\ d.del = "none"
-NoTasks(hs) == \A n \in hs : ~Replicates(Decide27(n, hs, {}, {}))
- \* a check "replicates" when it hands the replicator a task with at least one candidate node. (With overlapping
-\* rules the code as found keeps calling the replicator with an EMPTY candidate list: a holder remembered from
-\* an earlier rule does not lower the shortage of a later rule - a phantom shortage that copies nothing.)
-Replicates(d) == \E k \in 1..Len(d.tasks) : Len(d.tasks[k].nodes) > 0
-Quiet(hs) == \A n \in hs : LET d == Decide27(n, hs, {}, {}) IN ~Replicates(d) /\ d.del = "none"
-NoTasks(hs) == \A n \in hs : ~Replicates(Decide27(n, hs, {}, {}))
-=\* a check "replicates" when it hands the replicator a task with at least one candidate node. (With overlapping
-\* rules the code as found keeps calling the replicator with an EMPTY candidate list: a holder remembered from
-\* an earlier rule does not lower the shortage of a later rule - a phantom shortage that copies nothing.)
-Replicates(d) == \E k \in 1..Len(d.tasks) : Len(d.tasks[k].nodes) > 0
-Quiet(hs) == \A n \in hs : LET d == Decide27(n, hs, {}, {}) IN ~Replicates(d) /\ d.del = "none"
-NoTasks(hs) == \A n \in hs : ~Replicates(Decide27(n, hs, {}, {}))
- \* a check "replicates" when it hands the replicator a task with at least one candidate node. (With overlapping
-\* rules the code as found keeps calling the replicator with an EMPTY candidate list: a holder remembered from
-\* an earlier rule does not lower the shortage of a later rule - a phantom shortage that copies nothing.)
-Replicates(d) == \E k \in 1..Len(d.tasks) : Len(d.tasks[k].nodes) > 0
-Quiet(hs) == \A n \in hs : LET d == Decide27(n, hs, {}, {}) IN ~Replicates(d) /\ d.del = "none"
-NoTasks(hs) == \A n \in hs : ~Replicates(Decide27(n, hs, {}, {}))
-o\* a check "replicates" when it hands the replicator a task with at least one candidate node. (With overlapping
-\* rules the code as found keeps calling the replicator with an EMPTY candidate list: a holder remembered from
-\* an earlier rule does not lower the shortage of a later rule - a phantom shortage that copies nothing.)
-Replicates(d) == \E k \in 1..Len(d.tasks) : Len(d.tasks[k].nodes) > 0
-Quiet(hs) == \A n \in hs : LET d == Decide27(n, hs, {}, {}) IN ~Replicates(d) /\ d.del = "none"
-NoTasks(hs) == \A n \in hs : ~Replicates(Decide27(n, hs, {}, {}))
-n\* a check "replicates" when it hands the replicator a task with at least one candidate node. (With overlapping
-\* rules the code as found keeps calling the replicator with an EMPTY candidate list: a holder remembered from
-\* an earlier rule does not lower the shortage of a later rule - a phantom shortage that copies nothing.)
-Replicates(d) == \E k \in 1..Len(d.tasks) : Len(d.tasks[k].nodes) > 0
-Quiet(hs) == \A n \in hs : LET d == Decide27(n, hs, {}, {}) IN ~Replicates(d) /\ d.del = "none"
-NoTasks(hs) == \A n \in hs : ~Replicates(Decide27(n, hs, {}, {}))
-e\* a check "replicates" when it hands the replicator a task with at least one candidate node. (With overlapping
-\* rules the code as found keeps calling the replicator with an EMPTY candidate list: a holder remembered from
-\* an earlier rule does not lower the shortage of a later rule - a phantom shortage that copies nothing.)
-Replicates(d) == \E k \in 1..Len(d.tasks) : Len(d.tasks[k].nodes) > 0
-Quiet(hs) == \A n \in hs : LET d == Decide27(n, hs, {}, {}) IN ~Replicates(d) /\ d.del = "none"
-NoTasks(hs) == \A n \in hs : ~Replicates(Decide27(n, hs, {}, {}))
- \* a check "replicates" when it hands the replicator a task with at least one candidate node. (With overlapping
-\* rules the code as found keeps calling the replicator with an EMPTY candidate list: a holder remembered from
-\* an earlier rule does not lower the shortage of a later rule - a phantom shortage that copies nothing.)
-Replicates(d) == \E k \in 1..Len(d.tasks) : Len(d.tasks[k].nodes) > 0
-Quiet(hs) == \A n \in hs : LET d == Decide27(n, hs, {}, {}) IN ~Replicates(d) /\ d.del = "none"
-NoTasks(hs) == \A n \in hs : ~Replicates(Decide27(n, hs, {}, {}))
-p\* a check "replicates" when it hands the replicator a task with at least one candidate node. (With overlapping
-\* rules the code as found keeps calling the replicator with an EMPTY candidate list: a holder remembered from
-\* an earlier rule does not lower the shortage of a later rule - a phantom shortage that copies nothing.)
-Replicates(d) == \E k \in 1..Len(d.tasks) : Len(d.tasks[k].nodes) > 0
-Quiet(hs) == \A n \in hs : LET d == Decide27(n, hs, {}, {}) IN ~Replicates(d) /\ d.del = "none"
-NoTasks(hs) == \A n \in hs : ~Replicates(Decide27(n, hs, {}, {}))
-o\* a check "replicates" when it hands the replicator a task with at least one candidate node. (With overlapping
-\* rules the code as found keeps calling the replicator with an EMPTY candidate list: a holder remembered from
-\* an earlier rule does not lower the shortage of a later rule - a phantom shortage that copies nothing.)
-Replicates(d) == \E k \in 1..Len(d.tasks) : Len(d.tasks[k].nodes) > 0
-Quiet(hs) == \A n \in hs : LET d == Decide27(n, hs, {}, {}) IN ~Replicates(d) /\ d.del = "none"
-NoTasks(hs) == \A n \in hs : ~Replicates(Decide27(n, hs, {}, {}))
-l\* a check "replicates" when it hands the replicator a task with at least one candidate node. (With overlapping
-\* rules the code as found keeps calling the replicator with an EMPTY candidate list: a holder remembered from
-\* an earlier rule does not lower the shortage of a later rule - a phantom shortage that copies nothing.)
-Replicates(d) == \E k \in 1..Len(d.tasks) : Len(d.tasks[k].nodes) > 0
-Quiet(hs) == \A n \in hs : LET d == Decide27(n, hs, {}, {}) IN ~Replicates(d) /\ d.del = "none"
-NoTasks(hs) == \A n \in hs : ~Replicates(Decide27(n, hs, {}, {}))
-i\* a check "replicates" when it hands the replicator a task with at least one candidate node. (With overlapping
-\* rules the code as found keeps calling the replicator with an EMPTY candidate list: a holder remembered from
-\* an earlier rule does not lower the shortage of a later rule - a phantom shortage that copies nothing.)
-Replicates(d) == \E k \in 1..Len(d.tasks) : Len(d.tasks[k].nodes) > 0
-Quiet(hs) == \A n \in hs : LET d == Decide27(n, hs, {}, {}) IN ~Replicates(d) /\ d.del = "none"
-NoTasks(hs) == \A n \in hs : ~Replicates(Decide27(n, hs, {}, {}))
-c\* a check "replicates" when it hands the replicator a task with at least one candidate node. (With overlapping
-\* rules the code as found keeps calling the replicator with an EMPTY candidate list: a holder remembered from
-\* an earlier rule does not lower the shortage of a later rule - a phantom shortage that copies nothing.)
-Replicates(d) == \E k \in 1..Len(d.tasks) : Len(d.tasks[k].nodes) > 0
-Quiet(hs) == \A n \in hs : LET d == Decide27(n, hs, {}, {}) IN ~Replicates(d) /\ d.del = "none"
-NoTasks(hs) == \A n \in hs : ~Replicates(Decide27(n, hs, {}, {}))
-y\* a check "replicates" when it hands the replicator a task with at least one candidate node. (With overlapping
-\* rules the code as found keeps calling the replicator with an EMPTY candidate list: a holder remembered from
-\* an earlier rule does not lower the shortage of a later rule - a phantom shortage that copies nothing.)
-Replicates(d) == \E k \in 1..Len(d.tasks) : Len(d.tasks[k].nodes) > 0
-Quiet(hs) == \A n \in hs : LET d == Decide27(n, hs, {}, {}) IN ~Replicates(d) /\ d.del = "none"
-NoTasks(hs) == \A n \in hs : ~Replicates(Decide27(n, hs, {}, {}))
- \* a check "replicates" when it hands the replicator a task with at least one candidate node. (With overlapping
-\* rules the code as found keeps calling the replicator with an EMPTY candidate list: a holder remembered from
-\* an earlier rule does not lower the shortage of a later rule - a phantom shortage that copies nothing.)
-Replicates(d) == \E k \in 1..Len(d.tasks) : Len(d.tasks[k].nodes) > 0
-Quiet(hs) == \A n \in hs : LET d == Decide27(n, hs, {}, {}) IN ~Replicates(d) /\ d.del = "none"
-NoTasks(hs) == \A n \in hs : ~Replicates(Decide27(n, hs, {}, {}))
-c\* a check "replicates" when it hands the replicator a task with at least one candidate node. (With overlapping
-\* rules the code as found keeps calling the replicator with an EMPTY candidate list: a holder remembered from
-\* an earlier rule does not lower the shortage of a later rule - a phantom shortage that copies nothing.)
-Replicates(d) == \E k \in 1..Len(d.tasks) : Len(d.tasks[k].nodes) > 0
-Quiet(hs) == \A n \in hs : LET d == Decide27(n, hs, {}, {}) IN ~Replicates(d) /\ d.del = "none"
-NoTasks(hs) == \A n \in hs : ~Replicates(Decide27(n, hs, {}, {}))
-h\* a check "replicates" when it hands the replicator a task with at least one candidate node. (With overlapping
-\* rules the code as found keeps calling the replicator with an EMPTY candidate list: a holder remembered from
-\* an earlier rule does not lower the shortage of a later rule - a phantom shortage that copies nothing.)
-Replicates(d) == \E k \in 1..Len(d.tasks) : Len(d.tasks[k].nodes) > 0
-Quiet(hs) == \A n \in hs : LET d == Decide27(n, hs, {}, {}) IN ~Replicates(d) /\ d.del = "none"
-NoTasks(hs) == \A n \in hs : ~Replicates(Decide27(n, hs, {}, {}))
-e\* a check "replicates" when it hands the replicator a task with at least one candidate node. (With overlapping
-\* rules the code as found keeps calling the replicator with an EMPTY candidate list: a holder remembered from
-\* an earlier rule does not lower the shortage of a later rule - a phantom shortage that copies nothing.)
-Replicates(d) == \E k \in 1..Len(d.tasks) : Len(d.tasks[k].nodes) > 0
-Quiet(hs) == \A n \in hs : LET d == Decide27(n, hs, {}, {}) IN ~Replicates(d) /\ d.del = "none"
-NoTasks(hs) == \A n \in hs : ~Replicates(Decide27(n, hs, {}, {}))
-c\* a check "replicates" when it hands the replicator a task with at least one candidate node. (With overlapping
-\* rules the code as found keeps calling the replicator with an EMPTY candidate list: a holder remembered from
-\* an earlier rule does not lower the shortage of a later rule - a phantom shortage that copies nothing.)
-Replicates(d) == \E k \in 1..Len(d.tasks) : Len(d.tasks[k].nodes) > 0
-Quiet(hs) == \A n \in hs : LET d == Decide27(n, hs, {}, {}) IN ~Replicates(d) /\ d.del = "none"
-NoTasks(hs) == \A n \in hs : ~Replicates(Decide27(n, hs, {}, {}))
-k\* a check "replicates" when it hands the replicator a task with at least one candidate node. (With overlapping
-\* rules the code as found keeps calling the replicator with an EMPTY candidate list: a holder remembered from
-\* an earlier rule does not lower the shortage of a later rule - a phantom shortage that copies nothing.)
-Replicates(d) == \E k \in 1..Len(d.tasks) : Len(d.tasks[k].nodes) > 0
-Quiet(hs) == \A n \in hs : LET d == Decide27(n, hs, {}, {}) IN ~Replicates(d) /\ d.del = "none"
-NoTasks(hs) == \A n \in hs : ~Replicates(Decide27(n, hs, {}, {}))
- \* a check "replicates" when it hands the replicator a task with at least one candidate node. (With overlapping
-\* rules the code as found keeps calling the replicator with an EMPTY candidate list: a holder remembered from
-\* an earlier rule does not lower the shortage of a later rule - a phantom shortage that copies nothing.)
-Replicates(d) == \E k \in 1..Len(d.tasks) : Len(d.tasks[k].nodes) > 0
-Quiet(hs) == \A n \in hs : LET d == Decide27(n, hs, {}, {}) IN ~Replicates(d) /\ d.del = "none"
-NoTasks(hs) == \A n \in hs : ~Replicates(Decide27(n, hs, {}, {}))
-o\* a check "replicates" when it hands the replicator a task with at least one candidate node. (With overlapping
-\* rules the code as found keeps calling the replicator with an EMPTY candidate list: a holder remembered from
-\* an earlier rule does not lower the shortage of a later rule - a phantom shortage that copies nothing.)
-Replicates(d) == \E k \in 1..Len(d.tasks) : Len(d.tasks[k].nodes) > 0
-Quiet(hs) == \A n \in hs : LET d == Decide27(n, hs, {}, {}) IN ~Replicates(d) /\ d.del = "none"
-NoTasks(hs) == \A n \in hs : ~Replicates(Decide27(n, hs, {}, {}))
-f\* a check "replicates" when it hands the replicator a task with at least one candidate node. (With overlapping
-\* rules the code as found keeps calling the replicator with an EMPTY candidate list: a holder remembered from
-\* an earlier rule does not lower the shortage of a later rule - a phantom shortage that copies nothing.)
-Replicates(d) == \E k \in 1..Len(d.tasks) : Len(d.tasks[k].nodes) > 0
-Quiet(hs) == \A n \in hs : LET d == Decide27(n, hs, {}, {}) IN ~Replicates(d) /\ d.del = "none"
-NoTasks(hs) == \A n \in hs : ~Replicates(Decide27(n, hs, {}, {}))
- \* a check "replicates" when it hands the replicator a task with at least one candidate node. (With overlapping
-\* rules the code as found keeps calling the replicator with an EMPTY candidate list: a holder remembered from
-\* an earlier rule does not lower the shortage of a later rule - a phantom shortage that copies nothing.)
-Replicates(d) == \E k \in 1..Len(d.tasks) : Len(d.tasks[k].nodes) > 0
-Quiet(hs) == \A n \in hs : LET d == Decide27(n, hs, {}, {}) IN ~Replicates(d) /\ d.del = "none"
-NoTasks(hs) == \A n \in hs : ~Replicates(Decide27(n, hs, {}, {}))
-t\* a check "replicates" when it hands the replicator a task with at least one candidate node. (With overlapping
-\* rules the code as found keeps calling the replicator with an EMPTY candidate list: a holder remembered from
-\* an earlier rule does not lower the shortage of a later rule - a phantom shortage that copies nothing.)
-Replicates(d) == \E k \in 1..Len(d.tasks) : Len(d.tasks[k].nodes) > 0
-Quiet(hs) == \A n \in hs : LET d == Decide27(n, hs, {}, {}) IN ~Replicates(d) /\ d.del = "none"
-NoTasks(hs) == \A n \in hs : ~Replicates(Decide27(n, hs, {}, {}))
-h\* a check "replicates" when it hands the replicator a task with at least one candidate node. (With overlapping
-\* rules the code as found keeps calling the replicator with an EMPTY candidate list: a holder remembered from
-\* an earlier rule does not lower the shortage of a later rule - a phantom shortage that copies nothing.)
-Replicates(d) == \E k \in 1..Len(d.tasks) : Len(d.tasks[k].nodes) > 0
-Quiet(hs) == \A n \in hs : LET d == Decide27(n, hs, {}, {}) IN ~Replicates(d) /\ d.del = "none"
-NoTasks(hs) == \A n \in hs : ~Replicates(Decide27(n, hs, {}, {}))
-e\* a check "replicates" when it hands the replicator a task with at least one candidate node. (With overlapping
-\* rules the code as found keeps calling the replicator with an EMPTY candidate list: a holder remembered from
-\* an earlier rule does not lower the shortage of a later rule - a phantom shortage that copies nothing.)
-Replicates(d) == \E k \in 1..Len(d.tasks) : Len(d.tasks[k].nodes) > 0
-Quiet(hs) == \A n \in hs : LET d == Decide27(n, hs, {}, {}) IN ~Replicates(d) /\ d.del = "none"
-NoTasks(hs) == \A n \in hs : ~Replicates(Decide27(n, hs, {}, {}))
- \* a check "replicates" when it hands the replicator a task with at least one candidate node. (With overlapping
-\* rules the code as found keeps calling the replicator with an EMPTY candidate list: a holder remembered from
-\* an earlier rule does not lower the shortage of a later rule - a phantom shortage that copies nothing.)
-Replicates(d) == \E k \in 1..Len(d.tasks) : Len(d.tasks[k].nodes) > 0
-Quiet(hs) == \A n \in hs : LET d == Decide27(n, hs, {}, {}) IN ~Replicates(d) /\ d.del = "none"
-NoTasks(hs) == \A n \in hs : ~Replicates(Decide27(n, hs, {}, {}))
-o\* a check "replicates" when it hands the replicator a task with at least one candidate node. (With overlapping
-\* rules the code as found keeps calling the replicator with an EMPTY candidate list: a holder remembered from
-\* an earlier rule does not lower the shortage of a later rule - a phantom shortage that copies nothing.)
-Replicates(d) == \E k \in 1..Len(d.tasks) : Len(d.tasks[k].nodes) > 0
-Quiet(hs) == \A n \in hs : LET d == Decide27(n, hs, {}, {}) IN ~Replicates(d) /\ d.del = "none"
-NoTasks(hs) == \A n \in hs : ~Replicates(Decide27(n, hs, {}, {}))
-b\* a check "replicates" when it hands the replicator a task with at least one candidate node. (With overlapping
-\* rules the code as found keeps calling the replicator with an EMPTY candidate list: a holder remembered from
-\* an earlier rule does not lower the shortage of a later rule - a phantom shortage that copies nothing.)
-Replicates(d) == \E k \in 1..Len(d.tasks) : Len(d.tasks[k].nodes) > 0
-Quiet(hs) == \A n \in hs : LET d == Decide27(n, hs, {}, {}) IN ~Replicates(d) /\ d.del = "none"
-NoTasks(hs) == \A n \in hs : ~Replicates(Decide27(n, hs, {}, {}))
-j\* a check "replicates" when it hands the replicator a task with at least one candidate node. (With overlapping
-\* rules the code as found keeps calling the replicator with an EMPTY candidate list: a holder remembered from
-\* an earlier rule does not lower the shortage of a later rule - a phantom shortage that copies nothing.)
-Replicates(d) == \E k \in 1..Len(d.tasks) : Len(d.tasks[k].nodes) > 0
-Quiet(hs) == \A n \in hs : LET d == Decide27(n, hs, {}, {}) IN ~Replicates(d) /\ d.del = "none"
-NoTasks(hs) == \A n \in hs : ~Replicates(Decide27(n, hs, {}, {}))
-e\* a check "replicates" when it hands the replicator a task with at least one candidate node. (With overlapping
-\* rules the code as found keeps calling the replicator with an EMPTY candidate list: a holder remembered from
-\* an earlier rule does not lower the shortage of a later rule - a phantom shortage that copies nothing.)
-Replicates(d) == \E k \in 1..Len(d.tasks) : Len(d.tasks[k].nodes) > 0
-Quiet(hs) == \A n \in hs : LET d == Decide27(n, hs, {}, {}) IN ~Replicates(d) /\ d.del = "none"
-NoTasks(hs) == \A n \in hs : ~Replicates(Decide27(n, hs, {}, {}))
-c\* a check "replicates" when it hands the replicator a task with at least one candidate node. (With overlapping
-\* rules the code as found keeps calling the replicator with an EMPTY candidate list: a holder remembered from
-\* an earlier rule does not lower the shortage of a later rule - a phantom shortage that copies nothing.)
-Replicates(d) == \E k \in 1..Len(d.tasks) : Len(d.tasks[k].nodes) > 0
-Quiet(hs) == \A n \in hs : LET d == Decide27(n, hs, {}, {}) IN ~Replicates(d) /\ d.del = "none"
-NoTasks(hs) == \A n \in hs : ~Replicates(Decide27(n, hs, {}, {}))
-t\* a check "replicates" when it hands the replicator a task with at least one candidate node. (With overlapping
-\* rules the code as found keeps calling the replicator with an EMPTY candidate list: a holder remembered from
-\* an earlier rule does not lower the shortage of a later rule - a phantom shortage that copies nothing.)
-Replicates(d) == \E k \in 1..Len(d.tasks) : Len(d.tasks[k].nodes) > 0
-Quiet(hs) == \A n \in hs : LET d == Decide27(n, hs, {}, {}) IN ~Replicates(d) /\ d.del = "none"
-NoTasks(hs) == \A n \in hs : ~Replicates(Decide27(n, hs, {}, {}))
- \* a check "replicates" when it hands the replicator a task with at least one candidate node. (With overlapping
-\* rules the code as found keeps calling the replicator with an EMPTY candidate list: a holder remembered from
-\* an earlier rule does not lower the shortage of a later rule - a phantom shortage that copies nothing.)
-Replicates(d) == \E k \in 1..Len(d.tasks) : Len(d.tasks[k].nodes) > 0
-Quiet(hs) == \A n \in hs : LET d == Decide27(n, hs, {}, {}) IN ~Replicates(d) /\ d.del = "none"
-NoTasks(hs) == \A n \in hs : ~Replicates(Decide27(n, hs, {}, {}))
-b\* a check "replicates" when it hands the replicator a task with at least one candidate node. (With overlapping
-\* rules the code as found keeps calling the replicator with an EMPTY candidate list: a holder remembered from
-\* an earlier rule does not lower the shortage of a later rule - a phantom shortage that copies nothing.)
-Replicates(d) == \E k \in 1..Len(d.tasks) : Len(d.tasks[k].nodes) > 0
-Quiet(hs) == \A n \in hs : LET d == Decide27(n, hs, {}, {}) IN ~Replicates(d) /\ d.del = "none"
-NoTasks(hs) == \A n \in hs : ~Replicates(Decide27(n, hs, {}, {}))
-y\* a check "replicates" when it hands the replicator a task with at least one candidate node. (With overlapping
-\* rules the code as found keeps calling the replicator with an EMPTY candidate list: a holder remembered from
-\* an earlier rule does not lower the shortage of a later rule - a phantom shortage that copies nothing.)
-Replicates(d) == \E k \in 1..Len(d.tasks) : Len(d.tasks[k].nodes) > 0
-Quiet(hs) == \A n \in hs : LET d == Decide27(n, hs, {}, {}) IN ~Replicates(d) /\ d.del = "none"
-NoTasks(hs) == \A n \in hs : ~Replicates(Decide27(n, hs, {}, {}))
- \* a check "replicates" when it hands the replicator a task with at least one candidate node. (With overlapping
-\* rules the code as found keeps calling the replicator with an EMPTY candidate list: a holder remembered from
-\* an earlier rule does not lower the shortage of a later rule - a phantom shortage that copies nothing.)
-Replicates(d) == \E k \in 1..Len(d.tasks) : Len(d.tasks[k].nodes) > 0
-Quiet(hs) == \A n \in hs : LET d == Decide27(n, hs, {}, {}) IN ~Replicates(d) /\ d.del = "none"
-NoTasks(hs) == \A n \in hs : ~Replicates(Decide27(n, hs, {}, {}))
-o\* a check "replicates" when it hands the replicator a task with at least one candidate node. (With overlapping
-\* rules the code as found keeps calling the replicator with an EMPTY candidate list: a holder remembered from
-\* an earlier rule does not lower the shortage of a later rule - a phantom shortage that copies nothing.)
-Replicates(d) == \E k \in 1..Len(d.tasks) : Len(d.tasks[k].nodes) > 0
-Quiet(hs) == \A n \in hs : LET d == Decide27(n, hs, {}, {}) IN ~Replicates(d) /\ d.del = "none"
-NoTasks(hs) == \A n \in hs : ~Replicates(Decide27(n, hs, {}, {}))
-n\* a check "replicates" when it hands the replicator a task with at least one candidate node. (With overlapping
-\* rules the code as found keeps calling the replicator with an EMPTY candidate list: a holder remembered from
-\* an earlier rule does not lower the shortage of a later rule - a phantom shortage that copies nothing.)
-Replicates(d) == \E k \in 1..Len(d.tasks) : Len(d.tasks[k].nodes) > 0
-Quiet(hs) == \A n \in hs : LET d == Decide27(n, hs, {}, {}) IN ~Replicates(d) /\ d.del = "none"
-NoTasks(hs) == \A n \in hs : ~Replicates(Decide27(n, hs, {}, {}))
-e\* a check "replicates" when it hands the replicator a task with at least one candidate node. (With overlapping
-\* rules the code as found keeps calling the replicator with an EMPTY candidate list: a holder remembered from
-\* an earlier rule does not lower the shortage of a later rule - a phantom shortage that copies nothing.)
-Replicates(d) == \E k \in 1..Len(d.tasks) : Len(d.tasks[k].nodes) > 0
-Quiet(hs) == \A n \in hs : LET d == Decide27(n, hs, {}, {}) IN ~Replicates(d) /\ d.del = "none"
-NoTasks(hs) == \A n \in hs : ~Replicates(Decide27(n, hs, {}, {}))
-
-\* a check "replicates" when it hands the replicator a task with at least one candidate node. (With overlapping
-\* rules the code as found keeps calling the replicator with an EMPTY candidate list: a holder remembered from
-\* an earlier rule does not lower the shortage of a later rule - a phantom shortage that copies nothing.)
-Replicates(d) == \E k \in 1..Len(d.tasks) : Len(d.tasks[k].nodes) > 0
-Quiet(hs) == \A n \in hs : LET d == Decide27(n, hs, {}, {}) IN ~Replicates(d) /\ d.del = "none"
-NoTasks(hs) == \A n \in hs : ~Replicates(Decide27(n, hs, {}, {}))
- \* a check "replicates" when it hands the replicator a task with at least one candidate node. (With overlapping
-\* rules the code as found keeps calling the replicator with an EMPTY candidate list: a holder remembered from
-\* an earlier rule does not lower the shortage of a later rule - a phantom shortage that copies nothing.)
-Replicates(d) == \E k \in 1..Len(d.tasks) : Len(d.tasks[k].nodes) > 0
-Quiet(hs) == \A n \in hs : LET d == Decide27(n, hs, {}, {}) IN ~Replicates(d) /\ d.del = "none"
-NoTasks(hs) == \A n \in hs : ~Replicates(Decide27(n, hs, {}, {}))
- \* a check "replicates" when it hands the replicator a task with at least one candidate node. (With overlapping
-\* rules the code as found keeps calling the replicator with an EMPTY candidate list: a holder remembered from
-\* an earlier rule does not lower the shortage of a later rule - a phantom shortage that copies nothing.)
-Replicates(d) == \E k \in 1..Len(d.tasks) : Len(d.tasks[k].nodes) > 0
-Quiet(hs) == \A n \in hs : LET d == Decide27(n, hs, {}, {}) IN ~Replicates(d) /\ d.del = "none"
-NoTasks(hs) == \A n \in hs : ~Replicates(Decide27(n, hs, {}, {}))
- \* a check "replicates" when it hands the replicator a task with at least one candidate node. (With overlapping
-\* rules the code as found keeps calling the replicator with an EMPTY candidate list: a holder remembered from
-\* an earlier rule does not lower the shortage of a later rule - a phantom shortage that copies nothing.)
-Replicates(d) == \E k \in 1..Len(d.tasks) : Len(d.tasks[k].nodes) > 0
-Quiet(hs) == \A n \in hs : LET d == Decide27(n, hs, {}, {}) IN ~Replicates(d) /\ d.del = "none"
-NoTasks(hs) == \A n \in hs : ~Replicates(Decide27(n, hs, {}, {}))
-o\* a check "replicates" when it hands the replicator a task with at least one candidate node. (With overlapping
-\* rules the code as found keeps calling the replicator with an EMPTY candidate list: a holder remembered from
-\* an earlier rule does not lower the shortage of a later rule - a phantom shortage that copies nothing.)
-Replicates(d) == \E k \in 1..Len(d.tasks) : Len(d.tasks[k].nodes) > 0
-Quiet(hs) == \A n \in hs : LET d == Decide27(n, hs, {}, {}) IN ~Replicates(d) /\ d.del = "none"
-NoTasks(hs) == \A n \in hs : ~Replicates(Decide27(n, hs, {}, {}))
-f\* a check "replicates" when it hands the replicator a task with at least one candidate node. (With overlapping
-\* rules the code as found keeps calling the replicator with an EMPTY candidate list: a holder remembered from
-\* an earlier rule does not lower the shortage of a later rule - a phantom shortage that copies nothing.)
-Replicates(d) == \E k \in 1..Len(d.tasks) : Len(d.tasks[k].nodes) > 0
-Quiet(hs) == \A n \in hs : LET d == Decide27(n, hs, {}, {}) IN ~Replicates(d) /\ d.del = "none"
-NoTasks(hs) == \A n \in hs : ~Replicates(Decide27(n, hs, {}, {}))
- \* a check "replicates" when it hands the replicator a task with at least one candidate node. (With overlapping
-\* rules the code as found keeps calling the replicator with an EMPTY candidate list: a holder remembered from
-\* an earlier rule does not lower the shortage of a later rule - a phantom shortage that copies nothing.)
-Replicates(d) == \E k \in 1..Len(d.tasks) : Len(d.tasks[k].nodes) > 0
-Quiet(hs) == \A n \in hs : LET d == Decide27(n, hs, {}, {}) IN ~Replicates(d) /\ d.del = "none"
-NoTasks(hs) == \A n \in hs : ~Replicates(Decide27(n, hs, {}, {}))
-i\* a check "replicates" when it hands the replicator a task with at least one candidate node. (With overlapping
-\* rules the code as found keeps calling the replicator with an EMPTY candidate list: a holder remembered from
-\* an earlier rule does not lower the shortage of a later rule - a phantom shortage that copies nothing.)
-Replicates(d) == \E k \in 1..Len(d.tasks) : Len(d.tasks[k].nodes) > 0
-Quiet(hs) == \A n \in hs : LET d == Decide27(n, hs, {}, {}) IN ~Replicates(d) /\ d.del = "none"
-NoTasks(hs) == \A n \in hs : ~Replicates(Decide27(n, hs, {}, {}))
-t\* a check "replicates" when it hands the replicator a task with at least one candidate node. (With overlapping
-\* rules the code as found keeps calling the replicator with an EMPTY candidate list: a holder remembered from
-\* an earlier rule does not lower the shortage of a later rule - a phantom shortage that copies nothing.)
-Replicates(d) == \E k \in 1..Len(d.tasks) : Len(d.tasks[k].nodes) > 0
-Quiet(hs) == \A n \in hs : LET d == Decide27(n, hs, {}, {}) IN ~Replicates(d) /\ d.del = "none"
-NoTasks(hs) == \A n \in hs : ~Replicates(Decide27(n, hs, {}, {}))
-s\* a check "replicates" when it hands the replicator a task with at least one candidate node. (With overlapping
-\* rules the code as found keeps calling the replicator with an EMPTY candidate list: a holder remembered from
-\* an earlier rule does not lower the shortage of a later rule - a phantom shortage that copies nothing.)
-Replicates(d) == \E k \in 1..Len(d.tasks) : Len(d.tasks[k].nodes) > 0
-Quiet(hs) == \A n \in hs : LET d == Decide27(n, hs, {}, {}) IN ~Replicates(d) /\ d.del = "none"
-NoTasks(hs) == \A n \in hs : ~Replicates(Decide27(n, hs, {}, {}))
- \* a check "replicates" when it hands the replicator a task with at least one candidate node. (With overlapping
-\* rules the code as found keeps calling the replicator with an EMPTY candidate list: a holder remembered from
-\* an earlier rule does not lower the shortage of a later rule - a phantom shortage that copies nothing.)
-Replicates(d) == \E k \in 1..Len(d.tasks) : Len(d.tasks[k].nodes) > 0
-Quiet(hs) == \A n \in hs : LET d == Decide27(n, hs, {}, {}) IN ~Replicates(d) /\ d.del = "none"
-NoTasks(hs) == \A n \in hs : ~Replicates(Decide27(n, hs, {}, {}))
-h\* a check "replicates" when it hands the replicator a task with at least one candidate node. (With overlapping
-\* rules the code as found keeps calling the replicator with an EMPTY candidate list: a holder remembered from
-\* an earlier rule does not lower the shortage of a later rule - a phantom shortage that copies nothing.)
-Replicates(d) == \E k \in 1..Len(d.tasks) : Len(d.tasks[k].nodes) > 0
-Quiet(hs) == \A n \in hs : LET d == Decide27(n, hs, {}, {}) IN ~Replicates(d) /\ d.del = "none"
-NoTasks(hs) == \A n \in hs : ~Replicates(Decide27(n, hs, {}, {}))
-o\* a check "replicates" when it hands the replicator a task with at least one candidate node. (With overlapping
-\* rules the code as found keeps calling the replicator with an EMPTY candidate list: a holder remembered from
-\* an earlier rule does not lower the shortage of a later rule - a phantom shortage that copies nothing.)
-Replicates(d) == \E k \in 1..Len(d.tasks) : Len(d.tasks[k].nodes) > 0
-Quiet(hs) == \A n \in hs : LET d == Decide27(n, hs, {}, {}) IN ~Replicates(d) /\ d.del = "none"
-NoTasks(hs) == \A n \in hs : ~Replicates(Decide27(n, hs, {}, {}))
-l\* a check "replicates" when it hands the replicator a task with at least one candidate node. (With overlapping
-\* rules the code as found keeps calling the replicator with an EMPTY candidate list: a holder remembered from
-\* an earlier rule does not lower the shortage of a later rule - a phantom shortage that copies nothing.)
-Replicates(d) == \E k \in 1..Len(d.tasks) : Len(d.tasks[k].nodes) > 0
-Quiet(hs) == \A n \in hs : LET d == Decide27(n, hs, {}, {}) IN ~Replicates(d) /\ d.del = "none"
-NoTasks(hs) == \A n \in hs : ~Replicates(Decide27(n, hs, {}, {}))
-d\* a check "replicates" when it hands the replicator a task with at least one candidate node. (With overlapping
-\* rules the code as found keeps calling the replicator with an EMPTY candidate list: a holder remembered from
-\* an earlier rule does not lower the shortage of a later rule - a phantom shortage that copies nothing.)
-Replicates(d) == \E k \in 1..Len(d.tasks) : Len(d.tasks[k].nodes) > 0
-Quiet(hs) == \A n \in hs : LET d == Decide27(n, hs, {}, {}) IN ~Replicates(d) /\ d.del = "none"
-NoTasks(hs) == \A n \in hs : ~Replicates(Decide27(n, hs, {}, {}))
-e\* a check "replicates" when it hands the replicator a task with at least one candidate node. (With overlapping
-\* rules the code as found keeps calling the replicator with an EMPTY candidate list: a holder remembered from
-\* an earlier rule does not lower the shortage of a later rule - a phantom shortage that copies nothing.)
-Replicates(d) == \E k \in 1..Len(d.tasks) : Len(d.tasks[k].nodes) > 0
-Quiet(hs) == \A n \in hs : LET d == Decide27(n, hs, {}, {}) IN ~Replicates(d) /\ d.del = "none"
-NoTasks(hs) == \A n \in hs : ~Replicates(Decide27(n, hs, {}, {}))
-r\* a check "replicates" when it hands the replicator a task with at least one candidate node. (With overlapping
-\* rules the code as found keeps calling the replicator with an EMPTY candidate list: a holder remembered from
-\* an earlier rule does not lower the shortage of a later rule - a phantom shortage that copies nothing.)
-Replicates(d) == \E k \in 1..Len(d.tasks) : Len(d.tasks[k].nodes) > 0
-Quiet(hs) == \A n \in hs : LET d == Decide27(n, hs, {}, {}) IN ~Replicates(d) /\ d.del = "none"
-NoTasks(hs) == \A n \in hs : ~Replicates(Decide27(n, hs, {}, {}))
-s\* a check "replicates" when it hands the replicator a task with at least one candidate node. (With overlapping
-\* rules the code as found keeps calling the replicator with an EMPTY candidate list: a holder remembered from
-\* an earlier rule does not lower the shortage of a later rule - a phantom shortage that copies nothing.)
-Replicates(d) == \E k \in 1..Len(d.tasks) : Len(d.tasks[k].nodes) > 0
-Quiet(hs) == \A n \in hs : LET d == Decide27(n, hs, {}, {}) IN ~Replicates(d) /\ d.del = "none"
-NoTasks(hs) == \A n \in hs : ~Replicates(Decide27(n, hs, {}, {}))
-:\* a check "replicates" when it hands the replicator a task with at least one candidate node. (With overlapping
-\* rules the code as found keeps calling the replicator with an EMPTY candidate list: a holder remembered from
-\* an earlier rule does not lower the shortage of a later rule - a phantom shortage that copies nothing.)
-Replicates(d) == \E k \in 1..Len(d.tasks) : Len(d.tasks[k].nodes) > 0
-Quiet(hs) == \A n \in hs : LET d == Decide27(n, hs, {}, {}) IN ~Replicates(d) /\ d.del = "none"
-NoTasks(hs) == \A n \in hs : ~Replicates(Decide27(n, hs, {}, {}))
- \* a check "replicates" when it hands the replicator a task with at least one candidate node. (With overlapping
-\* rules the code as found keeps calling the replicator with an EMPTY candidate list: a holder remembered from
-\* an earlier rule does not lower the shortage of a later rule - a phantom shortage that copies nothing.)
-Replicates(d) == \E k \in 1..Len(d.tasks) : Len(d.tasks[k].nodes) > 0
-Quiet(hs) == \A n \in hs : LET d == Decide27(n, hs, {}, {}) IN ~Replicates(d) /\ d.del = "none"
-NoTasks(hs) == \A n \in hs : ~Replicates(Decide27(n, hs, {}, {}))
-e\* a check "replicates" when it hands the replicator a task with at least one candidate node. (With overlapping
-\* rules the code as found keeps calling the replicator with an EMPTY candidate list: a holder remembered from
-\* an earlier rule does not lower the shortage of a later rule - a phantom shortage that copies nothing.)
-Replicates(d) == \E k \in 1..Len(d.tasks) : Len(d.tasks[k].nodes) > 0
-Quiet(hs) == \A n \in hs : LET d == Decide27(n, hs, {}, {}) IN ~Replicates(d) /\ d.del = "none"
-NoTasks(hs) == \A n \in hs : ~Replicates(Decide27(n, hs, {}, {}))
-x\* a check "replicates" when it hands the replicator a task with at least one candidate node. (With overlapping
-\* rules the code as found keeps calling the replicator with an EMPTY candidate list: a holder remembered from
-\* an earlier rule does not lower the shortage of a later rule - a phantom shortage that copies nothing.)
-Replicates(d) == \E k \in 1..Len(d.tasks) : Len(d.tasks[k].nodes) > 0
-Quiet(hs) == \A n \in hs : LET d == Decide27(n, hs, {}, {}) IN ~Replicates(d) /\ d.del = "none"
-NoTasks(hs) == \A n \in hs : ~Replicates(Decide27(n, hs, {}, {}))
-a\* a check "replicates" when it hands the replicator a task with at least one candidate node. (With overlapping
-\* rules the code as found keeps calling the replicator with an EMPTY candidate list: a holder remembered from
-\* an earlier rule does not lower the shortage of a later rule - a phantom shortage that copies nothing.)
-Replicates(d) == \E k \in 1..Len(d.tasks) : Len(d.tasks[k].nodes) > 0
-Quiet(hs) == \A n \in hs : LET d == Decide27(n, hs, {}, {}) IN ~Replicates(d) /\ d.del = "none"
-NoTasks(hs) == \A n \in hs : ~Replicates(Decide27(n, hs, {}, {}))
-c\* a check "replicates" when it hands the replicator a task with at least one candidate node. (With overlapping
-\* rules the code as found keeps calling the replicator with an EMPTY candidate list: a holder remembered from
-\* an earlier rule does not lower the shortage of a later rule - a phantom shortage that copies nothing.)
-Replicates(d) == \E k \in 1..Len(d.tasks) : Len(d.tasks[k].nodes) > 0
-Quiet(hs) == \A n \in hs : LET d == Decide27(n, hs, {}, {}) IN ~Replicates(d) /\ d.del = "none"
-NoTasks(hs) == \A n \in hs : ~Replicates(Decide27(n, hs, {}, {}))
-t\* a check "replicates" when it hands the replicator a task with at least one candidate node. (With overlapping
-\* rules the code as found keeps calling the replicator with an EMPTY candidate list: a holder remembered from
-\* an earlier rule does not lower the shortage of a later rule - a phantom shortage that copies nothing.)
-Replicates(d) == \E k \in 1..Len(d.tasks) : Len(d.tasks[k].nodes) > 0
-Quiet(hs) == \A n \in hs : LET d == Decide27(n, hs, {}, {}) IN ~Replicates(d) /\ d.del = "none"
-NoTasks(hs) == \A n \in hs : ~Replicates(Decide27(n, hs, {}, {}))
-l\* a check "replicates" when it hands the replicator a task with at least one candidate node. (With overlapping
-\* rules the code as found keeps calling the replicator with an EMPTY candidate list: a holder remembered from
-\* an earlier rule does not lower the shortage of a later rule - a phantom shortage that copies nothing.)
-Replicates(d) == \E k \in 1..Len(d.tasks) : Len(d.tasks[k].nodes) > 0
-Quiet(hs) == \A n \in hs : LET d == Decide27(n, hs, {}, {}) IN ~Replicates(d) /\ d.del = "none"
-NoTasks(hs) == \A n \in hs : ~Replicates(Decide27(n, hs, {}, {}))
-y\* a check "replicates" when it hands the replicator a task with at least one candidate node. (With overlapping
-\* rules the code as found keeps calling the replicator with an EMPTY candidate list: a holder remembered from
-\* an earlier rule does not lower the shortage of a later rule - a phantom shortage that copies nothing.)
-Replicates(d) == \E k \in 1..Len(d.tasks) : Len(d.tasks[k].nodes) > 0
-Quiet(hs) == \A n \in hs : LET d == Decide27(n, hs, {}, {}) IN ~Replicates(d) /\ d.del = "none"
-NoTasks(hs) == \A n \in hs : ~Replicates(Decide27(n, hs, {}, {}))
- \* a check "replicates" when it hands the replicator a task with at least one candidate node. (With overlapping
-\* rules the code as found keeps calling the replicator with an EMPTY candidate list: a holder remembered from
-\* an earlier rule does not lower the shortage of a later rule - a phantom shortage that copies nothing.)
-Replicates(d) == \E k \in 1..Len(d.tasks) : Len(d.tasks[k].nodes) > 0
-Quiet(hs) == \A n \in hs : LET d == Decide27(n, hs, {}, {}) IN ~Replicates(d) /\ d.del = "none"
-NoTasks(hs) == \A n \in hs : ~Replicates(Decide27(n, hs, {}, {}))
-t\* a check "replicates" when it hands the replicator a task with at least one candidate node. (With overlapping
-\* rules the code as found keeps calling the replicator with an EMPTY candidate list: a holder remembered from
-\* an earlier rule does not lower the shortage of a later rule - a phantom shortage that copies nothing.)
-Replicates(d) == \E k \in 1..Len(d.tasks) : Len(d.tasks[k].nodes) > 0
-Quiet(hs) == \A n \in hs : LET d == Decide27(n, hs, {}, {}) IN ~Replicates(d) /\ d.del = "none"
-NoTasks(hs) == \A n \in hs : ~Replicates(Decide27(n, hs, {}, {}))
-h\* a check "replicates" when it hands the replicator a task with at least one candidate node. (With overlapping
-\* rules the code as found keeps calling the replicator with an EMPTY candidate list: a holder remembered from
-\* an earlier rule does not lower the shortage of a later rule - a phantom shortage that copies nothing.)
-Replicates(d) == \E k \in 1..Len(d.tasks) : Len(d.tasks[k].nodes) > 0
-Quiet(hs) == \A n \in hs : LET d == Decide27(n, hs, {}, {}) IN ~Replicates(d) /\ d.del = "none"
-NoTasks(hs) == \A n \in hs : ~Replicates(Decide27(n, hs, {}, {}))
-e\* a check "replicates" when it hands the replicator a task with at least one candidate node. (With overlapping
-\* rules the code as found keeps calling the replicator with an EMPTY candidate list: a holder remembered from
-\* an earlier rule does not lower the shortage of a later rule - a phantom shortage that copies nothing.)
-Replicates(d) == \E k \in 1..Len(d.tasks) : Len(d.tasks[k].nodes) > 0
-Quiet(hs) == \A n \in hs : LET d == Decide27(n, hs, {}, {}) IN ~Replicates(d) /\ d.del = "none"
-NoTasks(hs) == \A n \in hs : ~Replicates(Decide27(n, hs, {}, {}))
- \* a check "replicates" when it hands the replicator a task with at least one candidate node. (With overlapping
-\* rules the code as found keeps calling the replicator with an EMPTY candidate list: a holder remembered from
-\* an earlier rule does not lower the shortage of a later rule - a phantom shortage that copies nothing.)
-Replicates(d) == \E k \in 1..Len(d.tasks) : Len(d.tasks[k].nodes) > 0
-Quiet(hs) == \A n \in hs : LET d == Decide27(n, hs, {}, {}) IN ~Replicates(d) /\ d.del = "none"
-NoTasks(hs) == \A n \in hs : ~Replicates(Decide27(n, hs, {}, {}))
-d\* a check "replicates" when it hands the replicator a task with at least one candidate node. (With overlapping
-\* rules the code as found keeps calling the replicator with an EMPTY candidate list: a holder remembered from
-\* an earlier rule does not lower the shortage of a later rule - a phantom shortage that copies nothing.)
-Replicates(d) == \E k \in 1..Len(d.tasks) : Len(d.tasks[k].nodes) > 0
-Quiet(hs) == \A n \in hs : LET d == Decide27(n, hs, {}, {}) IN ~Replicates(d) /\ d.del = "none"
-NoTasks(hs) == \A n \in hs : ~Replicates(Decide27(n, hs, {}, {}))
-e\* a check "replicates" when it hands the replicator a task with at least one candidate node. (With overlapping
-\* rules the code as found keeps calling the replicator with an EMPTY candidate list: a holder remembered from
-\* an earlier rule does not lower the shortage of a later rule - a phantom shortage that copies nothing.)
-Replicates(d) == \E k \in 1..Len(d.tasks) : Len(d.tasks[k].nodes) > 0
-Quiet(hs) == \A n \in hs : LET d == Decide27(n, hs, {}, {}) IN ~Replicates(d) /\ d.del = "none"
-NoTasks(hs) == \A n \in hs : ~Replicates(Decide27(n, hs, {}, {}))
-c\* a check "replicates" when it hands the replicator a task with at least one candidate node. (With overlapping
-\* rules the code as found keeps calling the replicator with an EMPTY candidate list: a holder remembered from
-\* an earlier rule does not lower the shortage of a later rule - a phantom shortage that copies nothing.)
-Replicates(d) == \E k \in 1..Len(d.tasks) : Len(d.tasks[k].nodes) > 0
-Quiet(hs) == \A n \in hs : LET d == Decide27(n, hs, {}, {}) IN ~Replicates(d) /\ d.del = "none"
-NoTasks(hs) == \A n \in hs : ~Replicates(Decide27(n, hs, {}, {}))
-i\* a check "replicates" when it hands the replicator a task with at least one candidate node. (With overlapping
-\* rules the code as found keeps calling the replicator with an EMPTY candidate list: a holder remembered from
-\* an earlier rule does not lower the shortage of a later rule - a phantom shortage that copies nothing.)
-Replicates(d) == \E k \in 1..Len(d.tasks) : Len(d.tasks[k].nodes) > 0
-Quiet(hs) == \A n \in hs : LET d == Decide27(n, hs, {}, {}) IN ~Replicates(d) /\ d.del = "none"
-NoTasks(hs) == \A n \in hs : ~Replicates(Decide27(n, hs, {}, {}))
-s\* a check "replicates" when it hands the replicator a task with at least one candidate node. (With overlapping
-\* rules the code as found keeps calling the replicator with an EMPTY candidate list: a holder remembered from
-\* an earlier rule does not lower the shortage of a later rule - a phantom shortage that copies nothing.)
-Replicates(d) == \E k \in 1..Len(d.tasks) : Len(d.tasks[k].nodes) > 0
-Quiet(hs) == \A n \in hs : LET d == Decide27(n, hs, {}, {}) IN ~Replicates(d) /\ d.del = "none"
-NoTasks(hs) == \A n \in hs : ~Replicates(Decide27(n, hs, {}, {}))
-i\* a check "replicates" when it hands the replicator a task with at least one candidate node. (With overlapping
-\* rules the code as found keeps calling the replicator with an EMPTY candidate list: a holder remembered from
-\* an earlier rule does not lower the shortage of a later rule - a phantom shortage that copies nothing.)
-Replicates(d) == \E k \in 1..Len(d.tasks) : Len(d.tasks[k].nodes) > 0
-Quiet(hs) == \A n \in hs : LET d == Decide27(n, hs, {}, {}) IN ~Replicates(d) /\ d.del = "none"
-NoTasks(hs) == \A n \in hs : ~Replicates(Decide27(n, hs, {}, {}))
-o\* a check "replicates" when it hands the replicator a task with at least one candidate node. (With overlapping
-\* rules the code as found keeps calling the replicator with an EMPTY candidate list: a holder remembered from
-\* an earlier rule does not lower the shortage of a later rule - a phantom shortage that copies nothing.)
-Replicates(d) == \E k \in 1..Len(d.tasks) : Len(d.tasks[k].nodes) > 0
-Quiet(hs) == \A n \in hs : LET d == Decide27(n, hs, {}, {}) IN ~Replicates(d) /\ d.del = "none"
-NoTasks(hs) == \A n \in hs : ~Replicates(Decide27(n, hs, {}, {}))
-n\* a check "replicates" when it hands the replicator a task with at least one candidate node. (With overlapping
-\* rules the code as found keeps calling the replicator with an EMPTY candidate list: a holder remembered from
-\* an earlier rule does not lower the shortage of a later rule - a phantom shortage that copies nothing.)
-Replicates(d) == \E k \in 1..Len(d.tasks) : Len(d.tasks[k].nodes) > 0
-Quiet(hs) == \A n \in hs : LET d == Decide27(n, hs, {}, {}) IN ~Replicates(d) /\ d.del = "none"
-NoTasks(hs) == \A n \in hs : ~Replicates(Decide27(n, hs, {}, {}))
- \* a check "replicates" when it hands the replicator a task with at least one candidate node. (With overlapping
-\* rules the code as found keeps calling the replicator with an EMPTY candidate list: a holder remembered from
-\* an earlier rule does not lower the shortage of a later rule - a phantom shortage that copies nothing.)
-Replicates(d) == \E k \in 1..Len(d.tasks) : Len(d.tasks[k].nodes) > 0
-Quiet(hs) == \A n \in hs : LET d == Decide27(n, hs, {}, {}) IN ~Replicates(d) /\ d.del = "none"
-NoTasks(hs) == \A n \in hs : ~Replicates(Decide27(n, hs, {}, {}))
-f\* a check "replicates" when it hands the replicator a task with at least one candidate node. (With overlapping
-\* rules the code as found keeps calling the replicator with an EMPTY candidate list: a holder remembered from
-\* an earlier rule does not lower the shortage of a later rule - a phantom shortage that copies nothing.)
-Replicates(d) == \E k \in 1..Len(d.tasks) : Len(d.tasks[k].nodes) > 0
-Quiet(hs) == \A n \in hs : LET d == Decide27(n, hs, {}, {}) IN ~Replicates(d) /\ d.del = "none"
-NoTasks(hs) == \A n \in hs : ~Replicates(Decide27(n, hs, {}, {}))
-u\* a check "replicates" when it hands the replicator a task with at least one candidate node. (With overlapping
-\* rules the code as found keeps calling the replicator with an EMPTY candidate list: a holder remembered from
-\* an earlier rule does not lower the shortage of a later rule - a phantom shortage that copies nothing.)
-Replicates(d) == \E k \in 1..Len(d.tasks) : Len(d.tasks[k].nodes) > 0
-Quiet(hs) == \A n \in hs : LET d == Decide27(n, hs, {}, {}) IN ~Replicates(d) /\ d.del = "none"
-NoTasks(hs) == \A n \in hs : ~Replicates(Decide27(n, hs, {}, {}))
-n\* a check "replicates" when it hands the replicator a task with at least one candidate node. (With overlapping
-\* rules the code as found keeps calling the replicator with an EMPTY candidate list: a holder remembered from
-\* an earlier rule does not lower the shortage of a later rule - a phantom shortage that copies nothing.)
-Replicates(d) == \E k \in 1..Len(d.tasks) : Len(d.tasks[k].nodes) > 0
-Quiet(hs) == \A n \in hs : LET d == Decide27(n, hs, {}, {}) IN ~Replicates(d) /\ d.del = "none"
-NoTasks(hs) == \A n \in hs : ~Replicates(Decide27(n, hs, {}, {}))
-c\* a check "replicates" when it hands the replicator a task with at least one candidate node. (With overlapping
-\* rules the code as found keeps calling the replicator with an EMPTY candidate list: a holder remembered from
-\* an earlier rule does not lower the shortage of a later rule - a phantom shortage that copies nothing.)
-Replicates(d) == \E k \in 1..Len(d.tasks) : Len(d.tasks[k].nodes) > 0
-Quiet(hs) == \A n \in hs : LET d == Decide27(n, hs, {}, {}) IN ~Replicates(d) /\ d.del = "none"
-NoTasks(hs) == \A n \in hs : ~Replicates(Decide27(n, hs, {}, {}))
-t\* a check "replicates" when it hands the replicator a task with at least one candidate node. (With overlapping
-\* rules the code as found keeps calling the replicator with an EMPTY candidate list: a holder remembered from
-\* an earlier rule does not lower the shortage of a later rule - a phantom shortage that copies nothing.)
-Replicates(d) == \E k \in 1..Len(d.tasks) : Len(d.tasks[k].nodes) > 0
-Quiet(hs) == \A n \in hs : LET d == Decide27(n, hs, {}, {}) IN ~Replicates(d) /\ d.del = "none"
-NoTasks(hs) == \A n \in hs : ~Replicates(Decide27(n, hs, {}, {}))
-i\* a check "replicates" when it hands the replicator a task with at least one candidate node. (With overlapping
-\* rules the code as found keeps calling the replicator with an EMPTY candidate list: a holder remembered from
-\* an earlier rule does not lower the shortage of a later rule - a phantom shortage that copies nothing.)
-Replicates(d) == \E k \in 1..Len(d.tasks) : Len(d.tasks[k].nodes) > 0
-Quiet(hs) == \A n \in hs : LET d == Decide27(n, hs, {}, {}) IN ~Replicates(d) /\ d.del = "none"
-NoTasks(hs) == \A n \in hs : ~Replicates(Decide27(n, hs, {}, {}))
-o\* a check "replicates" when it hands the replicator a task with at least one candidate node. (With overlapping
-\* rules the code as found keeps calling the replicator with an EMPTY candidate list: a holder remembered from
-\* an earlier rule does not lower the shortage of a later rule - a phantom shortage that copies nothing.)
-Replicates(d) == \E k \in 1..Len(d.tasks) : Len(d.tasks[k].nodes) > 0
-Quiet(hs) == \A n \in hs : LET d == Decide27(n, hs, {}, {}) IN ~Replicates(d) /\ d.del = "none"
-NoTasks(hs) == \A n \in hs : ~Replicates(Decide27(n, hs, {}, {}))
-n\* a check "replicates" when it hands the replicator a task with at least one candidate node. (With overlapping
-\* rules the code as found keeps calling the replicator with an EMPTY candidate list: a holder remembered from
-\* an earlier rule does not lower the shortage of a later rule - a phantom shortage that copies nothing.)
-Replicates(d) == \E k \in 1..Len(d.tasks) : Len(d.tasks[k].nodes) > 0
-Quiet(hs) == \A n \in hs : LET d == Decide27(n, hs, {}, {}) IN ~Replicates(d) /\ d.del = "none"
-NoTasks(hs) == \A n \in hs : ~Replicates(Decide27(n, hs, {}, {}))
- \* a check "replicates" when it hands the replicator a task with at least one candidate node. (With overlapping
-\* rules the code as found keeps calling the replicator with an EMPTY candidate list: a holder remembered from
-\* an earlier rule does not lower the shortage of a later rule - a phantom shortage that copies nothing.)
-Replicates(d) == \E k \in 1..Len(d.tasks) : Len(d.tasks[k].nodes) > 0
-Quiet(hs) == \A n \in hs : LET d == Decide27(n, hs, {}, {}) IN ~Replicates(d) /\ d.del = "none"
-NoTasks(hs) == \A n \in hs : ~Replicates(Decide27(n, hs, {}, {}))
-F\* a check "replicates" when it hands the replicator a task with at least one candidate node. (With overlapping
-\* rules the code as found keeps calling the replicator with an EMPTY candidate list: a holder remembered from
-\* an earlier rule does not lower the shortage of a later rule - a phantom shortage that copies nothing.)
-Replicates(d) == \E k \in 1..Len(d.tasks) : Len(d.tasks[k].nodes) > 0
-Quiet(hs) == \A n \in hs : LET d == Decide27(n, hs, {}, {}) IN ~Replicates(d) /\ d.del = "none"
-NoTasks(hs) == \A n \in hs : ~Replicates(Decide27(n, hs, {}, {}))
- \* a check "replicates" when it hands the replicator a task with at least one candidate node. (With overlapping
-\* rules the code as found keeps calling the replicator with an EMPTY candidate list: a holder remembered from
-\* an earlier rule does not lower the shortage of a later rule - a phantom shortage that copies nothing.)
-Replicates(d) == \E k \in 1..Len(d.tasks) : Len(d.tasks[k].nodes) > 0
-Quiet(hs) == \A n \in hs : LET d == Decide27(n, hs, {}, {}) IN ~Replicates(d) /\ d.del = "none"
-NoTasks(hs) == \A n \in hs : ~Replicates(Decide27(n, hs, {}, {}))
-o\* a check "replicates" when it hands the replicator a task with at least one candidate node. (With overlapping
-\* rules the code as found keeps calling the replicator with an EMPTY candidate list: a holder remembered from
-\* an earlier rule does not lower the shortage of a later rule - a phantom shortage that copies nothing.)
-Replicates(d) == \E k \in 1..Len(d.tasks) : Len(d.tasks[k].nodes) > 0
-Quiet(hs) == \A n \in hs : LET d == Decide27(n, hs, {}, {}) IN ~Replicates(d) /\ d.del = "none"
-NoTasks(hs) == \A n \in hs : ~Replicates(Decide27(n, hs, {}, {}))
-f\* a check "replicates" when it hands the replicator a task with at least one candidate node. (With overlapping
-\* rules the code as found keeps calling the replicator with an EMPTY candidate list: a holder remembered from
-\* an earlier rule does not lower the shortage of a later rule - a phantom shortage that copies nothing.)
-Replicates(d) == \E k \in 1..Len(d.tasks) : Len(d.tasks[k].nodes) > 0
-Quiet(hs) == \A n \in hs : LET d == Decide27(n, hs, {}, {}) IN ~Replicates(d) /\ d.del = "none"
-NoTasks(hs) == \A n \in hs : ~Replicates(Decide27(n, hs, {}, {}))
- \* a check "replicates" when it hands the replicator a task with at least one candidate node. (With overlapping
-\* rules the code as found keeps calling the replicator with an EMPTY candidate list: a holder remembered from
-\* an earlier rule does not lower the shortage of a later rule - a phantom shortage that copies nothing.)
-Replicates(d) == \E k \in 1..Len(d.tasks) : Len(d.tasks[k].nodes) > 0
-Quiet(hs) == \A n \in hs : LET d == Decide27(n, hs, {}, {}) IN ~Replicates(d) /\ d.del = "none"
-NoTasks(hs) == \A n \in hs : ~Replicates(Decide27(n, hs, {}, {}))
-P\* a check "replicates" when it hands the replicator a task with at least one candidate node. (With overlapping
-\* rules the code as found keeps calling the replicator with an EMPTY candidate list: a holder remembered from
-\* an earlier rule does not lower the shortage of a later rule - a phantom shortage that copies nothing.)
-Replicates(d) == \E k \in 1..Len(d.tasks) : Len(d.tasks[k].nodes) > 0
-Quiet(hs) == \A n \in hs : LET d == Decide27(n, hs, {}, {}) IN ~Replicates(d) /\ d.del = "none"
-NoTasks(hs) == \A n \in hs : ~Replicates(Decide27(n, hs, {}, {}))
-o\* a check "replicates" when it hands the replicator a task with at least one candidate node. (With overlapping
-\* rules the code as found keeps calling the replicator with an EMPTY candidate list: a holder remembered from
-\* an earlier rule does not lower the shortage of a later rule - a phantom shortage that copies nothing.)
-Replicates(d) == \E k \in 1..Len(d.tasks) : Len(d.tasks[k].nodes) > 0
-Quiet(hs) == \A n \in hs : LET d == Decide27(n, hs, {}, {}) IN ~Replicates(d) /\ d.del = "none"
-NoTasks(hs) == \A n \in hs : ~Replicates(Decide27(n, hs, {}, {}))
-l\* a check "replicates" when it hands the replicator a task with at least one candidate node. (With overlapping
-\* rules the code as found keeps calling the replicator with an EMPTY candidate list: a holder remembered from
-\* an earlier rule does not lower the shortage of a later rule - a phantom shortage that copies nothing.)
-Replicates(d) == \E k \in 1..Len(d.tasks) : Len(d.tasks[k].nodes) > 0
-Quiet(hs) == \A n \in hs : LET d == Decide27(n, hs, {}, {}) IN ~Replicates(d) /\ d.del = "none"
-NoTasks(hs) == \A n \in hs : ~Replicates(Decide27(n, hs, {}, {}))
-i\* a check "replicates" when it hands the replicator a task with at least one candidate node. (With overlapping
-\* rules the code as found keeps calling the replicator with an EMPTY candidate list: a holder remembered from
-\* an earlier rule does not lower the shortage of a later rule - a phantom shortage that copies nothing.)
-Replicates(d) == \E k \in 1..Len(d.tasks) : Len(d.tasks[k].nodes) > 0
-Quiet(hs) == \A n \in hs : LET d == Decide27(n, hs, {}, {}) IN ~Replicates(d) /\ d.del = "none"
-NoTasks(hs) == \A n \in hs : ~Replicates(Decide27(n, hs, {}, {}))
-c\* a check "replicates" when it hands the replicator a task with at least one candidate node. (With overlapping
-\* rules the code as found keeps calling the replicator with an EMPTY candidate list: a holder remembered from
-\* an earlier rule does not lower the shortage of a later rule - a phantom shortage that copies nothing.)
-Replicates(d) == \E k \in 1..Len(d.tasks) : Len(d.tasks[k].nodes) > 0
-Quiet(hs) == \A n \in hs : LET d == Decide27(n, hs, {}, {}) IN ~Replicates(d) /\ d.del = "none"
-NoTasks(hs) == \A n \in hs : ~Replicates(Decide27(n, hs, {}, {}))
-e\* a check "replicates" when it hands the replicator a task with at least one candidate node. (With overlapping
-\* rules the code as found keeps calling the replicator with an EMPTY candidate list: a holder remembered from
-\* an earlier rule does not lower the shortage of a later rule - a phantom shortage that copies nothing.)
-Replicates(d) == \E k \in 1..Len(d.tasks) : Len(d.tasks[k].nodes) > 0
-Quiet(hs) == \A n \in hs : LET d == Decide27(n, hs, {}, {}) IN ~Replicates(d) /\ d.del = "none"
-NoTasks(hs) == \A n \in hs : ~Replicates(Decide27(n, hs, {}, {}))
-r\* a check "replicates" when it hands the replicator a task with at least one candidate node. (With overlapping
-\* rules the code as found keeps calling the replicator with an EMPTY candidate list: a holder remembered from
-\* an earlier rule does not lower the shortage of a later rule - a phantom shortage that copies nothing.)
-Replicates(d) == \E k \in 1..Len(d.tasks) : Len(d.tasks[k].nodes) > 0
-Quiet(hs) == \A n \in hs : LET d == Decide27(n, hs, {}, {}) IN ~Replicates(d) /\ d.del = "none"
-NoTasks(hs) == \A n \in hs : ~Replicates(Decide27(n, hs, {}, {}))
-.\* a check "replicates" when it hands the replicator a task with at least one candidate node. (With overlapping
-\* rules the code as found keeps calling the replicator with an EMPTY candidate list: a holder remembered from
-\* an earlier rule does not lower the shortage of a later rule - a phantom shortage that copies nothing.)
-Replicates(d) == \E k \in 1..Len(d.tasks) : Len(d.tasks[k].nodes) > 0
-Quiet(hs) == \A n \in hs : LET d == Decide27(n, hs, {}, {}) IN ~Replicates(d) /\ d.del = "none"
-NoTasks(hs) == \A n \in hs : ~Replicates(Decide27(n, hs, {}, {}))
-t\* a check "replicates" when it hands the replicator a task with at least one candidate node. (With overlapping
-\* rules the code as found keeps calling the replicator with an EMPTY candidate list: a holder remembered from
-\* an earlier rule does not lower the shortage of a later rule - a phantom shortage that copies nothing.)
-Replicates(d) == \E k \in 1..Len(d.tasks) : Len(d.tasks[k].nodes) > 0
-Quiet(hs) == \A n \in hs : LET d == Decide27(n, hs, {}, {}) IN ~Replicates(d) /\ d.del = "none"
-NoTasks(hs) == \A n \in hs : ~Replicates(Decide27(n, hs, {}, {}))
-l\* a check "replicates" when it hands the replicator a task with at least one candidate node. (With overlapping
-\* rules the code as found keeps calling the replicator with an EMPTY candidate list: a holder remembered from
-\* an earlier rule does not lower the shortage of a later rule - a phantom shortage that copies nothing.)
-Replicates(d) == \E k \in 1..Len(d.tasks) : Len(d.tasks[k].nodes) > 0
-Quiet(hs) == \A n \in hs : LET d == Decide27(n, hs, {}, {}) IN ~Replicates(d) /\ d.del = "none"
-NoTasks(hs) == \A n \in hs : ~Replicates(Decide27(n, hs, {}, {}))
-a\* a check "replicates" when it hands the replicator a task with at least one candidate node. (With overlapping
-\* rules the code as found keeps calling the replicator with an EMPTY candidate list: a holder remembered from
-\* an earlier rule does not lower the shortage of a later rule - a phantom shortage that copies nothing.)
-Replicates(d) == \E k \in 1..Len(d.tasks) : Len(d.tasks[k].nodes) > 0
-Quiet(hs) == \A n \in hs : LET d == Decide27(n, hs, {}, {}) IN ~Replicates(d) /\ d.del = "none"
-NoTasks(hs) == \A n \in hs : ~Replicates(Decide27(n, hs, {}, {}))
- \* a check "replicates" when it hands the replicator a task with at least one candidate node. (With overlapping
-\* rules the code as found keeps calling the replicator with an EMPTY candidate list: a holder remembered from
-\* an earlier rule does not lower the shortage of a later rule - a phantom shortage that copies nothing.)
-Replicates(d) == \E k \in 1..Len(d.tasks) : Len(d.tasks[k].nodes) > 0
-Quiet(hs) == \A n \in hs : LET d == Decide27(n, hs, {}, {}) IN ~Replicates(d) /\ d.del = "none"
-NoTasks(hs) == \A n \in hs : ~Replicates(Decide27(n, hs, {}, {}))
-(\* a check "replicates" when it hands the replicator a task with at least one candidate node. (With overlapping
-\* rules the code as found keeps calling the replicator with an EMPTY candidate list: a holder remembered from
-\* an earlier rule does not lower the shortage of a later rule - a phantom shortage that copies nothing.)
-Replicates(d) == \E k \in 1..Len(d.tasks) : Len(d.tasks[k].nodes) > 0
-Quiet(hs) == \A n \in hs : LET d == Decide27(n, hs, {}, {}) IN ~Replicates(d) /\ d.del = "none"
-NoTasks(hs) == \A n \in hs : ~Replicates(Decide27(n, hs, {}, {}))
-m\* a check "replicates" when it hands the replicator a task with at least one candidate node. (With overlapping
-\* rules the code as found keeps calling the replicator with an EMPTY candidate list: a holder remembered from
-\* an earlier rule does not lower the shortage of a later rule - a phantom shortage that copies nothing.)
-Replicates(d) == \E k \in 1..Len(d.tasks) : Len(d.tasks[k].nodes) > 0
-Quiet(hs) == \A n \in hs : LET d == Decide27(n, hs, {}, {}) IN ~Replicates(d) /\ d.del = "none"
-NoTasks(hs) == \A n \in hs : ~Replicates(Decide27(n, hs, {}, {}))
-o\* a check "replicates" when it hands the replicator a task with at least one candidate node. (With overlapping
-\* rules the code as found keeps calling the replicator with an EMPTY candidate list: a holder remembered from
-\* an earlier rule does not lower the shortage of a later rule - a phantom shortage that copies nothing.)
-Replicates(d) == \E k \in 1..Len(d.tasks) : Len(d.tasks[k].nodes) > 0
-Quiet(hs) == \A n \in hs : LET d == Decide27(n, hs, {}, {}) IN ~Replicates(d) /\ d.del = "none"
-NoTasks(hs) == \A n \in hs : ~Replicates(Decide27(n, hs, {}, {}))
-d\* a check "replicates" when it hands the replicator a task with at least one candidate node. (With overlapping
-\* rules the code as found keeps calling the replicator with an EMPTY candidate list: a holder remembered from
-\* an earlier rule does not lower the shortage of a later rule - a phantom shortage that copies nothing.)
-Replicates(d) == \E k \in 1..Len(d.tasks) : Len(d.tasks[k].nodes) > 0
-Quiet(hs) == \A n \in hs : LET d == Decide27(n, hs, {}, {}) IN ~Replicates(d) /\ d.del = "none"
-NoTasks(hs) == \A n \in hs : ~Replicates(Decide27(n, hs, {}, {}))
-u\* a check "replicates" when it hands the replicator a task with at least one candidate node. (With overlapping
-\* rules the code as found keeps calling the replicator with an EMPTY candidate list: a holder remembered from
-\* an earlier rule does not lower the shortage of a later rule - a phantom shortage that copies nothing.)
-Replicates(d) == \E k \in 1..Len(d.tasks) : Len(d.tasks[k].nodes) > 0
-Quiet(hs) == \A n \in hs : LET d == Decide27(n, hs, {}, {}) IN ~Replicates(d) /\ d.del = "none"
-NoTasks(hs) == \A n \in hs : ~Replicates(Decide27(n, hs, {}, {}))
-l\* a check "replicates" when it hands the replicator a task with at least one candidate node. (With overlapping
-\* rules the code as found keeps calling the replicator with an EMPTY candidate list: a holder remembered from
-\* an earlier rule does not lower the shortage of a later rule - a phantom shortage that copies nothing.)
-Replicates(d) == \E k \in 1..Len(d.tasks) : Len(d.tasks[k].nodes) > 0
-Quiet(hs) == \A n \in hs : LET d == Decide27(n, hs, {}, {}) IN ~Replicates(d) /\ d.del = "none"
-NoTasks(hs) == \A n \in hs : ~Replicates(Decide27(n, hs, {}, {}))
-e\* a check "replicates" when it hands the replicator a task with at least one candidate node. (With overlapping
-\* rules the code as found keeps calling the replicator with an EMPTY candidate list: a holder remembered from
-\* an earlier rule does not lower the shortage of a later rule - a phantom shortage that copies nothing.)
-Replicates(d) == \E k \in 1..Len(d.tasks) : Len(d.tasks[k].nodes) > 0
-Quiet(hs) == \A n \in hs : LET d == Decide27(n, hs, {}, {}) IN ~Replicates(d) /\ d.del = "none"
-NoTasks(hs) == \A n \in hs : ~Replicates(Decide27(n, hs, {}, {}))
- \* a check "replicates" when it hands the replicator a task with at least one candidate node. (With overlapping
-\* rules the code as found keeps calling the replicator with an EMPTY candidate list: a holder remembered from
-\* an earlier rule does not lower the shortage of a later rule - a phantom shortage that copies nothing.)
-Replicates(d) == \E k \in 1..Len(d.tasks) : Len(d.tasks[k].nodes) > 0
-Quiet(hs) == \A n \in hs : LET d == Decide27(n, hs, {}, {}) IN ~Replicates(d) /\ d.del = "none"
-NoTasks(hs) == \A n \in hs : ~Replicates(Decide27(n, hs, {}, {}))
-e\* a check "replicates" when it hands the replicator a task with at least one candidate node. (With overlapping
-\* rules the code as found keeps calling the replicator with an EMPTY candidate list: a holder remembered from
-\* an earlier rule does not lower the shortage of a later rule - a phantom shortage that copies nothing.)
-Replicates(d) == \E k \in 1..Len(d.tasks) : Len(d.tasks[k].nodes) > 0
-Quiet(hs) == \A n \in hs : LET d == Decide27(n, hs, {}, {}) IN ~Replicates(d) /\ d.del = "none"
-NoTasks(hs) == \A n \in hs : ~Replicates(Decide27(n, hs, {}, {}))
-x\* a check "replicates" when it hands the replicator a task with at least one candidate node. (With overlapping
-\* rules the code as found keeps calling the replicator with an EMPTY candidate list: a holder remembered from
-\* an earlier rule does not lower the shortage of a later rule - a phantom shortage that copies nothing.)
-Replicates(d) == \E k \in 1..Len(d.tasks) : Len(d.tasks[k].nodes) > 0
-Quiet(hs) == \A n \in hs : LET d == Decide27(n, hs, {}, {}) IN ~Replicates(d) /\ d.del = "none"
-NoTasks(hs) == \A n \in hs : ~Replicates(Decide27(n, hs, {}, {}))
-t\* a check "replicates" when it hands the replicator a task with at least one candidate node. (With overlapping
-\* rules the code as found keeps calling the replicator with an EMPTY candidate list: a holder remembered from
-\* an earlier rule does not lower the shortage of a later rule - a phantom shortage that copies nothing.)
-Replicates(d) == \E k \in 1..Len(d.tasks) : Len(d.tasks[k].nodes) > 0
-Quiet(hs) == \A n \in hs : LET d == Decide27(n, hs, {}, {}) IN ~Replicates(d) /\ d.del = "none"
-NoTasks(hs) == \A n \in hs : ~Replicates(Decide27(n, hs, {}, {}))
-e\* a check "replicates" when it hands the replicator a task with at least one candidate node. (With overlapping
-\* rules the code as found keeps calling the replicator with an EMPTY candidate list: a holder remembered from
-\* an earlier rule does not lower the shortage of a later rule - a phantom shortage that copies nothing.)
-Replicates(d) == \E k \in 1..Len(d.tasks) : Len(d.tasks[k].nodes) > 0
-Quiet(hs) == \A n \in hs : LET d == Decide27(n, hs, {}, {}) IN ~Replicates(d) /\ d.del = "none"
-NoTasks(hs) == \A n \in hs : ~Replicates(Decide27(n, hs, {}, {}))
-n\* a check "replicates" when it hands the replicator a task with at least one candidate node. (With overlapping
-\* rules the code as found keeps calling the replicator with an EMPTY candidate list: a holder remembered from
-\* an earlier rule does not lower the shortage of a later rule - a phantom shortage that copies nothing.)
-Replicates(d) == \E k \in 1..Len(d.tasks) : Len(d.tasks[k].nodes) > 0
-Quiet(hs) == \A n \in hs : LET d == Decide27(n, hs, {}, {}) IN ~Replicates(d) /\ d.del = "none"
-NoTasks(hs) == \A n \in hs : ~Replicates(Decide27(n, hs, {}, {}))
-d\* a check "replicates" when it hands the replicator a task with at least one candidate node. (With overlapping
-\* rules the code as found keeps calling the replicator with an EMPTY candidate list: a holder remembered from
-\* an earlier rule does not lower the shortage of a later rule - a phantom shortage that copies nothing.)
-Replicates(d) == \E k \in 1..Len(d.tasks) : Len(d.tasks[k].nodes) > 0
-Quiet(hs) == \A n \in hs : LET d == Decide27(n, hs, {}, {}) IN ~Replicates(d) /\ d.del = "none"
-NoTasks(hs) == \A n \in hs : ~Replicates(Decide27(n, hs, {}, {}))
-e\* a check "replicates" when it hands the replicator a task with at least one candidate node. (With overlapping
-\* rules the code as found keeps calling the replicator with an EMPTY candidate list: a holder remembered from
-\* an earlier rule does not lower the shortage of a later rule - a phantom shortage that copies nothing.)
-Replicates(d) == \E k \in 1..Len(d.tasks) : Len(d.tasks[k].nodes) > 0
-Quiet(hs) == \A n \in hs : LET d == Decide27(n, hs, {}, {}) IN ~Replicates(d) /\ d.del = "none"
-NoTasks(hs) == \A n \in hs : ~Replicates(Decide27(n, hs, {}, {}))
-d\* a check "replicates" when it hands the replicator a task with at least one candidate node. (With overlapping
-\* rules the code as found keeps calling the replicator with an EMPTY candidate list: a holder remembered from
-\* an earlier rule does not lower the shortage of a later rule - a phantom shortage that copies nothing.)
-Replicates(d) == \E k \in 1..Len(d.tasks) : Len(d.tasks[k].nodes) > 0
-Quiet(hs) == \A n \in hs : LET d == Decide27(n, hs, {}, {}) IN ~Replicates(d) /\ d.del = "none"
-NoTasks(hs) == \A n \in hs : ~Replicates(Decide27(n, hs, {}, {}))
- \* a check "replicates" when it hands the replicator a task with at least one candidate node. (With overlapping
-\* rules the code as found keeps calling the replicator with an EMPTY candidate list: a holder remembered from
-\* an earlier rule does not lower the shortage of a later rule - a phantom shortage that copies nothing.)
-Replicates(d) == \E k \in 1..Len(d.tasks) : Len(d.tasks[k].nodes) > 0
-Quiet(hs) == \A n \in hs : LET d == Decide27(n, hs, {}, {}) IN ~Replicates(d) /\ d.del = "none"
-NoTasks(hs) == \A n \in hs : ~Replicates(Decide27(n, hs, {}, {}))
-h\* a check "replicates" when it hands the replicator a task with at least one candidate node. (With overlapping
-\* rules the code as found keeps calling the replicator with an EMPTY candidate list: a holder remembered from
-\* an earlier rule does not lower the shortage of a later rule - a phantom shortage that copies nothing.)
-Replicates(d) == \E k \in 1..Len(d.tasks) : Len(d.tasks[k].nodes) > 0
-Quiet(hs) == \A n \in hs : LET d == Decide27(n, hs, {}, {}) IN ~Replicates(d) /\ d.del = "none"
-NoTasks(hs) == \A n \in hs : ~Replicates(Decide27(n, hs, {}, {}))
-e\* a check "replicates" when it hands the replicator a task with at least one candidate node. (With overlapping
-\* rules the code as found keeps calling the replicator with an EMPTY candidate list: a holder remembered from
-\* an earlier rule does not lower the shortage of a later rule - a phantom shortage that copies nothing.)
-Replicates(d) == \E k \in 1..Len(d.tasks) : Len(d.tasks[k].nodes) > 0
-Quiet(hs) == \A n \in hs : LET d == Decide27(n, hs, {}, {}) IN ~Replicates(d) /\ d.del = "none"
-NoTasks(hs) == \A n \in hs : ~Replicates(Decide27(n, hs, {}, {}))
-r\* a check "replicates" when it hands the replicator a task with at least one candidate node. (With overlapping
-\* rules the code as found keeps calling the replicator with an EMPTY candidate list: a holder remembered from
-\* an earlier rule does not lower the shortage of a later rule - a phantom shortage that copies nothing.)
-Replicates(d) == \E k \in 1..Len(d.tasks) : Len(d.tasks[k].nodes) > 0
-Quiet(hs) == \A n \in hs : LET d == Decide27(n, hs, {}, {}) IN ~Replicates(d) /\ d.del = "none"
-NoTasks(hs) == \A n \in hs : ~Replicates(Decide27(n, hs, {}, {}))
-e\* a check "replicates" when it hands the replicator a task with at least one candidate node. (With overlapping
-\* rules the code as found keeps calling the replicator with an EMPTY candidate list: a holder remembered from
-\* an earlier rule does not lower the shortage of a later rule - a phantom shortage that copies nothing.)
-Replicates(d) == \E k \in 1..Len(d.tasks) : Len(d.tasks[k].nodes) > 0
-Quiet(hs) == \A n \in hs : LET d == Decide27(n, hs, {}, {}) IN ~Replicates(d) /\ d.del = "none"
-NoTasks(hs) == \A n \in hs : ~Replicates(Decide27(n, hs, {}, {}))
-,\* a check "replicates" when it hands the replicator a task with at least one candidate node. (With overlapping
-\* rules the code as found keeps calling the replicator with an EMPTY candidate list: a holder remembered from
-\* an earlier rule does not lower the shortage of a later rule - a phantom shortage that copies nothing.)
-Replicates(d) == \E k \in 1..Len(d.tasks) : Len(d.tasks[k].nodes) > 0
-Quiet(hs) == \A n \in hs : LET d == Decide27(n, hs, {}, {}) IN ~Replicates(d) /\ d.del = "none"
-NoTasks(hs) == \A n \in hs : ~Replicates(Decide27(n, hs, {}, {}))
- \* a check "replicates" when it hands the replicator a task with at least one candidate node. (With overlapping
-\* rules the code as found keeps calling the replicator with an EMPTY candidate list: a holder remembered from
-\* an earlier rule does not lower the shortage of a later rule - a phantom shortage that copies nothing.)
-Replicates(d) == \E k \in 1..Len(d.tasks) : Len(d.tasks[k].nodes) > 0
-Quiet(hs) == \A n \in hs : LET d == Decide27(n, hs, {}, {}) IN ~Replicates(d) /\ d.del = "none"
-NoTasks(hs) == \A n \in hs : ~Replicates(Decide27(n, hs, {}, {}))
-s\* a check "replicates" when it hands the replicator a task with at least one candidate node. (With overlapping
-\* rules the code as found keeps calling the replicator with an EMPTY candidate list: a holder remembered from
-\* an earlier rule does not lower the shortage of a later rule - a phantom shortage that copies nothing.)
-Replicates(d) == \E k \in 1..Len(d.tasks) : Len(d.tasks[k].nodes) > 0
-Quiet(hs) == \A n \in hs : LET d == Decide27(n, hs, {}, {}) IN ~Replicates(d) /\ d.del = "none"
-NoTasks(hs) == \A n \in hs : ~Replicates(Decide27(n, hs, {}, {}))
-o\* a check "replicates" when it hands the replicator a task with at least one candidate node. (With overlapping
-\* rules the code as found keeps calling the replicator with an EMPTY candidate list: a holder remembered from
-\* an earlier rule does not lower the shortage of a later rule - a phantom shortage that copies nothing.)
-Replicates(d) == \E k \in 1..Len(d.tasks) : Len(d.tasks[k].nodes) > 0
-Quiet(hs) == \A n \in hs : LET d == Decide27(n, hs, {}, {}) IN ~Replicates(d) /\ d.del = "none"
-NoTasks(hs) == \A n \in hs : ~Replicates(Decide27(n, hs, {}, {}))
- \* a check "replicates" when it hands the replicator a task with at least one candidate node. (With overlapping
-\* rules the code as found keeps calling the replicator with an EMPTY candidate list: a holder remembered from
-\* an earlier rule does not lower the shortage of a later rule - a phantom shortage that copies nothing.)
-Replicates(d) == \E k \in 1..Len(d.tasks) : Len(d.tasks[k].nodes) > 0
-Quiet(hs) == \A n \in hs : LET d == Decide27(n, hs, {}, {}) IN ~Replicates(d) /\ d.del = "none"
-NoTasks(hs) == \A n \in hs : ~Replicates(Decide27(n, hs, {}, {}))
-t\* a check "replicates" when it hands the replicator a task with at least one candidate node. (With overlapping
-\* rules the code as found keeps calling the replicator with an EMPTY candidate list: a holder remembered from
-\* an earlier rule does not lower the shortage of a later rule - a phantom shortage that copies nothing.)
-Replicates(d) == \E k \in 1..Len(d.tasks) : Len(d.tasks[k].nodes) > 0
-Quiet(hs) == \A n \in hs : LET d == Decide27(n, hs, {}, {}) IN ~Replicates(d) /\ d.del = "none"
-NoTasks(hs) == \A n \in hs : ~Replicates(Decide27(n, hs, {}, {}))
-h\* a check "replicates" when it hands the replicator a task with at least one candidate node. (With overlapping
-\* rules the code as found keeps calling the replicator with an EMPTY candidate list: a holder remembered from
-\* an earlier rule does not lower the shortage of a later rule - a phantom shortage that copies nothing.)
-Replicates(d) == \E k \in 1..Len(d.tasks) : Len(d.tasks[k].nodes) > 0
-Quiet(hs) == \A n \in hs : LET d == Decide27(n, hs, {}, {}) IN ~Replicates(d) /\ d.del = "none"
-NoTasks(hs) == \A n \in hs : ~Replicates(Decide27(n, hs, {}, {}))
-e\* a check "replicates" when it hands the replicator a task with at least one candidate node. (With overlapping
-\* rules the code as found keeps calling the replicator with an EMPTY candidate list: a holder remembered from
-\* an earlier rule does not lower the shortage of a later rule - a phantom shortage that copies nothing.)
-Replicates(d) == \E k \in 1..Len(d.tasks) : Len(d.tasks[k].nodes) > 0
-Quiet(hs) == \A n \in hs : LET d == Decide27(n, hs, {}, {}) IN ~Replicates(d) /\ d.del = "none"
-NoTasks(hs) == \A n \in hs : ~Replicates(Decide27(n, hs, {}, {}))
- \* a check "replicates" when it hands the replicator a task with at least one candidate node. (With overlapping
-\* rules the code as found keeps calling the replicator with an EMPTY candidate list: a holder remembered from
-\* an earlier rule does not lower the shortage of a later rule - a phantom shortage that copies nothing.)
-Replicates(d) == \E k \in 1..Len(d.tasks) : Len(d.tasks[k].nodes) > 0
-Quiet(hs) == \A n \in hs : LET d == Decide27(n, hs, {}, {}) IN ~Replicates(d) /\ d.del = "none"
-NoTasks(hs) == \A n \in hs : ~Replicates(Decide27(n, hs, {}, {}))
-C\* a check "replicates" when it hands the replicator a task with at least one candidate node. (With overlapping
-\* rules the code as found keeps calling the replicator with an EMPTY candidate list: a holder remembered from
-\* an earlier rule does not lower the shortage of a later rule - a phantom shortage that copies nothing.)
-Replicates(d) == \E k \in 1..Len(d.tasks) : Len(d.tasks[k].nodes) > 0
-Quiet(hs) == \A n \in hs : LET d == Decide27(n, hs, {}, {}) IN ~Replicates(d) /\ d.del = "none"
-NoTasks(hs) == \A n \in hs : ~Replicates(Decide27(n, hs, {}, {}))
-2\* a check "replicates" when it hands the replicator a task with at least one candidate node. (With overlapping
-\* rules the code as found keeps calling the replicator with an EMPTY candidate list: a holder remembered from
-\* an earlier rule does not lower the shortage of a later rule - a phantom shortage that copies nothing.)
-Replicates(d) == \E k \in 1..Len(d.tasks) : Len(d.tasks[k].nodes) > 0
-Quiet(hs) == \A n \in hs : LET d == Decide27(n, hs, {}, {}) IN ~Replicates(d) /\ d.del = "none"
-NoTasks(hs) == \A n \in hs : ~Replicates(Decide27(n, hs, {}, {}))
-7\* a check "replicates" when it hands the replicator a task with at least one candidate node. (With overlapping
-\* rules the code as found keeps calling the replicator with an EMPTY candidate list: a holder remembered from
-\* an earlier rule does not lower the shortage of a later rule - a phantom shortage that copies nothing.)
-Replicates(d) == \E k \in 1..Len(d.tasks) : Len(d.tasks[k].nodes) > 0
-Quiet(hs) == \A n \in hs : LET d == Decide27(n, hs, {}, {}) IN ~Replicates(d) /\ d.del = "none"
-NoTasks(hs) == \A n \in hs : ~Replicates(Decide27(n, hs, {}, {}))
- \* a check "replicates" when it hands the replicator a task with at least one candidate node. (With overlapping
-\* rules the code as found keeps calling the replicator with an EMPTY candidate list: a holder remembered from
-\* an earlier rule does not lower the shortage of a later rule - a phantom shortage that copies nothing.)
-Replicates(d) == \E k \in 1..Len(d.tasks) : Len(d.tasks[k].nodes) > 0
-Quiet(hs) == \A n \in hs : LET d == Decide27(n, hs, {}, {}) IN ~Replicates(d) /\ d.del = "none"
-NoTasks(hs) == \A n \in hs : ~Replicates(Decide27(n, hs, {}, {}))
-m\* a check "replicates" when it hands the replicator a task with at least one candidate node. (With overlapping
-\* rules the code as found keeps calling the replicator with an EMPTY candidate list: a holder remembered from
-\* an earlier rule does not lower the shortage of a later rule - a phantom shortage that copies nothing.)
-Replicates(d) == \E k \in 1..Len(d.tasks) : Len(d.tasks[k].nodes) > 0
-Quiet(hs) == \A n \in hs : LET d == Decide27(n, hs, {}, {}) IN ~Replicates(d) /\ d.del = "none"
-NoTasks(hs) == \A n \in hs : ~Replicates(Decide27(n, hs, {}, {}))
-o\* a check "replicates" when it hands the replicator a task with at least one candidate node. (With overlapping
-\* rules the code as found keeps calling the replicator with an EMPTY candidate list: a holder remembered from
-\* an earlier rule does not lower the shortage of a later rule - a phantom shortage that copies nothing.)
-Replicates(d) == \E k \in 1..Len(d.tasks) : Len(d.tasks[k].nodes) > 0
-Quiet(hs) == \A n \in hs : LET d == Decide27(n, hs, {}, {}) IN ~Replicates(d) /\ d.del = "none"
-NoTasks(hs) == \A n \in hs : ~Replicates(Decide27(n, hs, {}, {}))
-d\* a check "replicates" when it hands the replicator a task with at least one candidate node. (With overlapping
-\* rules the code as found keeps calling the replicator with an EMPTY candidate list: a holder remembered from
-\* an earlier rule does not lower the shortage of a later rule - a phantom shortage that copies nothing.)
-Replicates(d) == \E k \in 1..Len(d.tasks) : Len(d.tasks[k].nodes) > 0
-Quiet(hs) == \A n \in hs : LET d == Decide27(n, hs, {}, {}) IN ~Replicates(d) /\ d.del = "none"
-NoTasks(hs) == \A n \in hs : ~Replicates(Decide27(n, hs, {}, {}))
-e\* a check "replicates" when it hands the replicator a task with at least one candidate node. (With overlapping
-\* rules the code as found keeps calling the replicator with an EMPTY candidate list: a holder remembered from
-\* an earlier rule does not lower the shortage of a later rule - a phantom shortage that copies nothing.)
-Replicates(d) == \E k \in 1..Len(d.tasks) : Len(d.tasks[k].nodes) > 0
-Quiet(hs) == \A n \in hs : LET d == Decide27(n, hs, {}, {}) IN ~Replicates(d) /\ d.del = "none"
-NoTasks(hs) == \A n \in hs : ~Replicates(Decide27(n, hs, {}, {}))
-l\* a check "replicates" when it hands the replicator a task with at least one candidate node. (With overlapping
-\* rules the code as found keeps calling the replicator with an EMPTY candidate list: a holder remembered from
-\* an earlier rule does not lower the shortage of a later rule - a phantom shortage that copies nothing.)
-Replicates(d) == \E k \in 1..Len(d.tasks) : Len(d.tasks[k].nodes) > 0
-Quiet(hs) == \A n \in hs : LET d == Decide27(n, hs, {}, {}) IN ~Replicates(d) /\ d.del = "none"
-NoTasks(hs) == \A n \in hs : ~Replicates(Decide27(n, hs, {}, {}))
- \* a check "replicates" when it hands the replicator a task with at least one candidate node. (With overlapping
-\* rules the code as found keeps calling the replicator with an EMPTY candidate list: a holder remembered from
-\* an earlier rule does not lower the shortage of a later rule - a phantom shortage that copies nothing.)
-Replicates(d) == \E k \in 1..Len(d.tasks) : Len(d.tasks[k].nodes) > 0
-Quiet(hs) == \A n \in hs : LET d == Decide27(n, hs, {}, {}) IN ~Replicates(d) /\ d.del = "none"
-NoTasks(hs) == \A n \in hs : ~Replicates(Decide27(n, hs, {}, {}))
-a\* a check "replicates" when it hands the replicator a task with at least one candidate node. (With overlapping
-\* rules the code as found keeps calling the replicator with an EMPTY candidate list: a holder remembered from
-\* an earlier rule does not lower the shortage of a later rule - a phantom shortage that copies nothing.)
-Replicates(d) == \E k \in 1..Len(d.tasks) : Len(d.tasks[k].nodes) > 0
-Quiet(hs) == \A n \in hs : LET d == Decide27(n, hs, {}, {}) IN ~Replicates(d) /\ d.del = "none"
-NoTasks(hs) == \A n \in hs : ~Replicates(Decide27(n, hs, {}, {}))
-n\* a check "replicates" when it hands the replicator a task with at least one candidate node. (With overlapping
-\* rules the code as found keeps calling the replicator with an EMPTY candidate list: a holder remembered from
-\* an earlier rule does not lower the shortage of a later rule - a phantom shortage that copies nothing.)
-Replicates(d) == \E k \in 1..Len(d.tasks) : Len(d.tasks[k].nodes) > 0
-Quiet(hs) == \A n \in hs : LET d == Decide27(n, hs, {}, {}) IN ~Replicates(d) /\ d.del = "none"
-NoTasks(hs) == \A n \in hs : ~Replicates(Decide27(n, hs, {}, {}))
-d\* a check "replicates" when it hands the replicator a task with at least one candidate node. (With overlapping
-\* rules the code as found keeps calling the replicator with an EMPTY candidate list: a holder remembered from
-\* an earlier rule does not lower the shortage of a later rule - a phantom shortage that copies nothing.)
-Replicates(d) == \E k \in 1..Len(d.tasks) : Len(d.tasks[k].nodes) > 0
-Quiet(hs) == \A n \in hs : LET d == Decide27(n, hs, {}, {}) IN ~Replicates(d) /\ d.del = "none"
-NoTasks(hs) == \A n \in hs : ~Replicates(Decide27(n, hs, {}, {}))
-
-\* a check "replicates" when it hands the replicator a task with at least one candidate node. (With overlapping
-\* rules the code as found keeps calling the replicator with an EMPTY candidate list: a holder remembered from
-\* an earlier rule does not lower the shortage of a later rule - a phantom shortage that copies nothing.)
-Replicates(d) == \E k \in 1..Len(d.tasks) : Len(d.tasks[k].nodes) > 0
-Quiet(hs) == \A n \in hs : LET d == Decide27(n, hs, {}, {}) IN ~Replicates(d) /\ d.del = "none"
-NoTasks(hs) == \A n \in hs : ~Replicates(Decide27(n, hs, {}, {}))
- \* a check "replicates" when it hands the replicator a task with at least one candidate node. (With overlapping
-\* rules the code as found keeps calling the replicator with an EMPTY candidate list: a holder remembered from
-\* an earlier rule does not lower the shortage of a later rule - a phantom shortage that copies nothing.)
-Replicates(d) == \E k \in 1..Len(d.tasks) : Len(d.tasks[k].nodes) > 0
-Quiet(hs) == \A n \in hs : LET d == Decide27(n, hs, {}, {}) IN ~Replicates(d) /\ d.del = "none"
-NoTasks(hs) == \A n \in hs : ~Replicates(Decide27(n, hs, {}, {}))
- \* a check "replicates" when it hands the replicator a task with at least one candidate node. (With overlapping
-\* rules the code as found keeps calling the replicator with an EMPTY candidate list: a holder remembered from
-\* an earlier rule does not lower the shortage of a later rule - a phantom shortage that copies nothing.)
-Replicates(d) == \E k \in 1..Len(d.tasks) : Len(d.tasks[k].nodes) > 0
-Quiet(hs) == \A n \in hs : LET d == Decide27(n, hs, {}, {}) IN ~Replicates(d) /\ d.del = "none"
-NoTasks(hs) == \A n \in hs : ~Replicates(Decide27(n, hs, {}, {}))
- \* a check "replicates" when it hands the replicator a task with at least one candidate node. (With overlapping
-\* rules the code as found keeps calling the replicator with an EMPTY candidate list: a holder remembered from
-\* an earlier rule does not lower the shortage of a later rule - a phantom shortage that copies nothing.)
-Replicates(d) == \E k \in 1..Len(d.tasks) : Len(d.tasks[k].nodes) > 0
-Quiet(hs) == \A n \in hs : LET d == Decide27(n, hs, {}, {}) IN ~Replicates(d) /\ d.del = "none"
-NoTasks(hs) == \A n \in hs : ~Replicates(Decide27(n, hs, {}, {}))
-t\* a check "replicates" when it hands the replicator a task with at least one candidate node. (With overlapping
-\* rules the code as found keeps calling the replicator with an EMPTY candidate list: a holder remembered from
-\* an earlier rule does not lower the shortage of a later rule - a phantom shortage that copies nothing.)
-Replicates(d) == \E k \in 1..Len(d.tasks) : Len(d.tasks[k].nodes) > 0
-Quiet(hs) == \A n \in hs : LET d == Decide27(n, hs, {}, {}) IN ~Replicates(d) /\ d.del = "none"
-NoTasks(hs) == \A n \in hs : ~Replicates(Decide27(n, hs, {}, {}))
-h\* a check "replicates" when it hands the replicator a task with at least one candidate node. (With overlapping
-\* rules the code as found keeps calling the replicator with an EMPTY candidate list: a holder remembered from
-\* an earlier rule does not lower the shortage of a later rule - a phantom shortage that copies nothing.)
-Replicates(d) == \E k \in 1..Len(d.tasks) : Len(d.tasks[k].nodes) > 0
-Quiet(hs) == \A n \in hs : LET d == Decide27(n, hs, {}, {}) IN ~Replicates(d) /\ d.del = "none"
-NoTasks(hs) == \A n \in hs : ~Replicates(Decide27(n, hs, {}, {}))
-e\* a check "replicates" when it hands the replicator a task with at least one candidate node. (With overlapping
-\* rules the code as found keeps calling the replicator with an EMPTY candidate list: a holder remembered from
-\* an earlier rule does not lower the shortage of a later rule - a phantom shortage that copies nothing.)
-Replicates(d) == \E k \in 1..Len(d.tasks) : Len(d.tasks[k].nodes) > 0
-Quiet(hs) == \A n \in hs : LET d == Decide27(n, hs, {}, {}) IN ~Replicates(d) /\ d.del = "none"
-NoTasks(hs) == \A n \in hs : ~Replicates(Decide27(n, hs, {}, {}))
- \* a check "replicates" when it hands the replicator a task with at least one candidate node. (With overlapping
-\* rules the code as found keeps calling the replicator with an EMPTY candidate list: a holder remembered from
-\* an earlier rule does not lower the shortage of a later rule - a phantom shortage that copies nothing.)
-Replicates(d) == \E k \in 1..Len(d.tasks) : Len(d.tasks[k].nodes) > 0
-Quiet(hs) == \A n \in hs : LET d == Decide27(n, hs, {}, {}) IN ~Replicates(d) /\ d.del = "none"
-NoTasks(hs) == \A n \in hs : ~Replicates(Decide27(n, hs, {}, {}))
-C\* a check "replicates" when it hands the replicator a task with at least one candidate node. (With overlapping
-\* rules the code as found keeps calling the replicator with an EMPTY candidate list: a holder remembered from
-\* an earlier rule does not lower the shortage of a later rule - a phantom shortage that copies nothing.)
-Replicates(d) == \E k \in 1..Len(d.tasks) : Len(d.tasks[k].nodes) > 0
-Quiet(hs) == \A n \in hs : LET d == Decide27(n, hs, {}, {}) IN ~Replicates(d) /\ d.del = "none"
-NoTasks(hs) == \A n \in hs : ~Replicates(Decide27(n, hs, {}, {}))
-2\* a check "replicates" when it hands the replicator a task with at least one candidate node. (With overlapping
-\* rules the code as found keeps calling the replicator with an EMPTY candidate list: a holder remembered from
-\* an earlier rule does not lower the shortage of a later rule - a phantom shortage that copies nothing.)
-Replicates(d) == \E k \in 1..Len(d.tasks) : Len(d.tasks[k].nodes) > 0
-Quiet(hs) == \A n \in hs : LET d == Decide27(n, hs, {}, {}) IN ~Replicates(d) /\ d.del = "none"
-NoTasks(hs) == \A n \in hs : ~Replicates(Decide27(n, hs, {}, {}))
-6\* a check "replicates" when it hands the replicator a task with at least one candidate node. (With overlapping
-\* rules the code as found keeps calling the replicator with an EMPTY candidate list: a holder remembered from
-\* an earlier rule does not lower the shortage of a later rule - a phantom shortage that copies nothing.)
-Replicates(d) == \E k \in 1..Len(d.tasks) : Len(d.tasks[k].nodes) > 0
-Quiet(hs) == \A n \in hs : LET d == Decide27(n, hs, {}, {}) IN ~Replicates(d) /\ d.del = "none"
-NoTasks(hs) == \A n \in hs : ~Replicates(Decide27(n, hs, {}, {}))
- \* a check "replicates" when it hands the replicator a task with at least one candidate node. (With overlapping
-\* rules the code as found keeps calling the replicator with an EMPTY candidate list: a holder remembered from
-\* an earlier rule does not lower the shortage of a later rule - a phantom shortage that copies nothing.)
-Replicates(d) == \E k \in 1..Len(d.tasks) : Len(d.tasks[k].nodes) > 0
-Quiet(hs) == \A n \in hs : LET d == Decide27(n, hs, {}, {}) IN ~Replicates(d) /\ d.del = "none"
-NoTasks(hs) == \A n \in hs : ~Replicates(Decide27(n, hs, {}, {}))
-m\* a check "replicates" when it hands the replicator a task with at least one candidate node. (With overlapping
-\* rules the code as found keeps calling the replicator with an EMPTY candidate list: a holder remembered from
-\* an earlier rule does not lower the shortage of a later rule - a phantom shortage that copies nothing.)
-Replicates(d) == \E k \in 1..Len(d.tasks) : Len(d.tasks[k].nodes) > 0
-Quiet(hs) == \A n \in hs : LET d == Decide27(n, hs, {}, {}) IN ~Replicates(d) /\ d.del = "none"
-NoTasks(hs) == \A n \in hs : ~Replicates(Decide27(n, hs, {}, {}))
-o\* a check "replicates" when it hands the replicator a task with at least one candidate node. (With overlapping
-\* rules the code as found keeps calling the replicator with an EMPTY candidate list: a holder remembered from
-\* an earlier rule does not lower the shortage of a later rule - a phantom shortage that copies nothing.)
-Replicates(d) == \E k \in 1..Len(d.tasks) : Len(d.tasks[k].nodes) > 0
-Quiet(hs) == \A n \in hs : LET d == Decide27(n, hs, {}, {}) IN ~Replicates(d) /\ d.del = "none"
-NoTasks(hs) == \A n \in hs : ~Replicates(Decide27(n, hs, {}, {}))
-d\* a check "replicates" when it hands the replicator a task with at least one candidate node. (With overlapping
-\* rules the code as found keeps calling the replicator with an EMPTY candidate list: a holder remembered from
-\* an earlier rule does not lower the shortage of a later rule - a phantom shortage that copies nothing.)
-Replicates(d) == \E k \in 1..Len(d.tasks) : Len(d.tasks[k].nodes) > 0
-Quiet(hs) == \A n \in hs : LET d == Decide27(n, hs, {}, {}) IN ~Replicates(d) /\ d.del = "none"
-NoTasks(hs) == \A n \in hs : ~Replicates(Decide27(n, hs, {}, {}))
-e\* a check "replicates" when it hands the replicator a task with at least one candidate node. (With overlapping
-\* rules the code as found keeps calling the replicator with an EMPTY candidate list: a holder remembered from
-\* an earlier rule does not lower the shortage of a later rule - a phantom shortage that copies nothing.)
-Replicates(d) == \E k \in 1..Len(d.tasks) : Len(d.tasks[k].nodes) > 0
-Quiet(hs) == \A n \in hs : LET d == Decide27(n, hs, {}, {}) IN ~Replicates(d) /\ d.del = "none"
-NoTasks(hs) == \A n \in hs : ~Replicates(Decide27(n, hs, {}, {}))
-l\* a check "replicates" when it hands the replicator a task with at least one candidate node. (With overlapping
-\* rules the code as found keeps calling the replicator with an EMPTY candidate list: a holder remembered from
-\* an earlier rule does not lower the shortage of a later rule - a phantom shortage that copies nothing.)
-Replicates(d) == \E k \in 1..Len(d.tasks) : Len(d.tasks[k].nodes) > 0
-Quiet(hs) == \A n \in hs : LET d == Decide27(n, hs, {}, {}) IN ~Replicates(d) /\ d.del = "none"
-NoTasks(hs) == \A n \in hs : ~Replicates(Decide27(n, hs, {}, {}))
- \* a check "replicates" when it hands the replicator a task with at least one candidate node. (With overlapping
-\* rules the code as found keeps calling the replicator with an EMPTY candidate list: a holder remembered from
-\* an earlier rule does not lower the shortage of a later rule - a phantom shortage that copies nothing.)
-Replicates(d) == \E k \in 1..Len(d.tasks) : Len(d.tasks[k].nodes) > 0
-Quiet(hs) == \A n \in hs : LET d == Decide27(n, hs, {}, {}) IN ~Replicates(d) /\ d.del = "none"
-NoTasks(hs) == \A n \in hs : ~Replicates(Decide27(n, hs, {}, {}))
-c\* a check "replicates" when it hands the replicator a task with at least one candidate node. (With overlapping
-\* rules the code as found keeps calling the replicator with an EMPTY candidate list: a holder remembered from
-\* an earlier rule does not lower the shortage of a later rule - a phantom shortage that copies nothing.)
-Replicates(d) == \E k \in 1..Len(d.tasks) : Len(d.tasks[k].nodes) > 0
-Quiet(hs) == \A n \in hs : LET d == Decide27(n, hs, {}, {}) IN ~Replicates(d) /\ d.del = "none"
-NoTasks(hs) == \A n \in hs : ~Replicates(Decide27(n, hs, {}, {}))
-a\* a check "replicates" when it hands the replicator a task with at least one candidate node. (With overlapping
-\* rules the code as found keeps calling the replicator with an EMPTY candidate list: a holder remembered from
-\* an earlier rule does not lower the shortage of a later rule - a phantom shortage that copies nothing.)
-Replicates(d) == \E k \in 1..Len(d.tasks) : Len(d.tasks[k].nodes) > 0
-Quiet(hs) == \A n \in hs : LET d == Decide27(n, hs, {}, {}) IN ~Replicates(d) /\ d.del = "none"
-NoTasks(hs) == \A n \in hs : ~Replicates(Decide27(n, hs, {}, {}))
-n\* a check "replicates" when it hands the replicator a task with at least one candidate node. (With overlapping
-\* rules the code as found keeps calling the replicator with an EMPTY candidate list: a holder remembered from
-\* an earlier rule does not lower the shortage of a later rule - a phantom shortage that copies nothing.)
-Replicates(d) == \E k \in 1..Len(d.tasks) : Len(d.tasks[k].nodes) > 0
-Quiet(hs) == \A n \in hs : LET d == Decide27(n, hs, {}, {}) IN ~Replicates(d) /\ d.del = "none"
-NoTasks(hs) == \A n \in hs : ~Replicates(Decide27(n, hs, {}, {}))
-n\* a check "replicates" when it hands the replicator a task with at least one candidate node. (With overlapping
-\* rules the code as found keeps calling the replicator with an EMPTY candidate list: a holder remembered from
-\* an earlier rule does not lower the shortage of a later rule - a phantom shortage that copies nothing.)
-Replicates(d) == \E k \in 1..Len(d.tasks) : Len(d.tasks[k].nodes) > 0
-Quiet(hs) == \A n \in hs : LET d == Decide27(n, hs, {}, {}) IN ~Replicates(d) /\ d.del = "none"
-NoTasks(hs) == \A n \in hs : ~Replicates(Decide27(n, hs, {}, {}))
-o\* a check "replicates" when it hands the replicator a task with at least one candidate node. (With overlapping
-\* rules the code as found keeps calling the replicator with an EMPTY candidate list: a holder remembered from
-\* an earlier rule does not lower the shortage of a later rule - a phantom shortage that copies nothing.)
-Replicates(d) == \E k \in 1..Len(d.tasks) : Len(d.tasks[k].nodes) > 0
-Quiet(hs) == \A n \in hs : LET d == Decide27(n, hs, {}, {}) IN ~Replicates(d) /\ d.del = "none"
-NoTasks(hs) == \A n \in hs : ~Replicates(Decide27(n, hs, {}, {}))
-t\* a check "replicates" when it hands the replicator a task with at least one candidate node. (With overlapping
-\* rules the code as found keeps calling the replicator with an EMPTY candidate list: a holder remembered from
-\* an earlier rule does not lower the shortage of a later rule - a phantom shortage that copies nothing.)
-Replicates(d) == \E k \in 1..Len(d.tasks) : Len(d.tasks[k].nodes) > 0
-Quiet(hs) == \A n \in hs : LET d == Decide27(n, hs, {}, {}) IN ~Replicates(d) /\ d.del = "none"
-NoTasks(hs) == \A n \in hs : ~Replicates(Decide27(n, hs, {}, {}))
- \* a check "replicates" when it hands the replicator a task with at least one candidate node. (With overlapping
-\* rules the code as found keeps calling the replicator with an EMPTY candidate list: a holder remembered from
-\* an earlier rule does not lower the shortage of a later rule - a phantom shortage that copies nothing.)
-Replicates(d) == \E k \in 1..Len(d.tasks) : Len(d.tasks[k].nodes) > 0
-Quiet(hs) == \A n \in hs : LET d == Decide27(n, hs, {}, {}) IN ~Replicates(d) /\ d.del = "none"
-NoTasks(hs) == \A n \in hs : ~Replicates(Decide27(n, hs, {}, {}))
-d\* a check "replicates" when it hands the replicator a task with at least one candidate node. (With overlapping
-\* rules the code as found keeps calling the replicator with an EMPTY candidate list: a holder remembered from
-\* an earlier rule does not lower the shortage of a later rule - a phantom shortage that copies nothing.)
-Replicates(d) == \E k \in 1..Len(d.tasks) : Len(d.tasks[k].nodes) > 0
-Quiet(hs) == \A n \in hs : LET d == Decide27(n, hs, {}, {}) IN ~Replicates(d) /\ d.del = "none"
-NoTasks(hs) == \A n \in hs : ~Replicates(Decide27(n, hs, {}, {}))
-r\* a check "replicates" when it hands the replicator a task with at least one candidate node. (With overlapping
-\* rules the code as found keeps calling the replicator with an EMPTY candidate list: a holder remembered from
-\* an earlier rule does not lower the shortage of a later rule - a phantom shortage that copies nothing.)
-Replicates(d) == \E k \in 1..Len(d.tasks) : Len(d.tasks[k].nodes) > 0
-Quiet(hs) == \A n \in hs : LET d == Decide27(n, hs, {}, {}) IN ~Replicates(d) /\ d.del = "none"
-NoTasks(hs) == \A n \in hs : ~Replicates(Decide27(n, hs, {}, {}))
-i\* a check "replicates" when it hands the replicator a task with at least one candidate node. (With overlapping
-\* rules the code as found keeps calling the replicator with an EMPTY candidate list: a holder remembered from
-\* an earlier rule does not lower the shortage of a later rule - a phantom shortage that copies nothing.)
-Replicates(d) == \E k \in 1..Len(d.tasks) : Len(d.tasks[k].nodes) > 0
-Quiet(hs) == \A n \in hs : LET d == Decide27(n, hs, {}, {}) IN ~Replicates(d) /\ d.del = "none"
-NoTasks(hs) == \A n \in hs : ~Replicates(Decide27(n, hs, {}, {}))
-f\* a check "replicates" when it hands the replicator a task with at least one candidate node. (With overlapping
-\* rules the code as found keeps calling the replicator with an EMPTY candidate list: a holder remembered from
-\* an earlier rule does not lower the shortage of a later rule - a phantom shortage that copies nothing.)
-Replicates(d) == \E k \in 1..Len(d.tasks) : Len(d.tasks[k].nodes) > 0
-Quiet(hs) == \A n \in hs : LET d == Decide27(n, hs, {}, {}) IN ~Replicates(d) /\ d.del = "none"
-NoTasks(hs) == \A n \in hs : ~Replicates(Decide27(n, hs, {}, {}))
-t\* a check "replicates" when it hands the replicator a task with at least one candidate node. (With overlapping
-\* rules the code as found keeps calling the replicator with an EMPTY candidate list: a holder remembered from
-\* an earlier rule does not lower the shortage of a later rule - a phantom shortage that copies nothing.)
-Replicates(d) == \E k \in 1..Len(d.tasks) : Len(d.tasks[k].nodes) > 0
-Quiet(hs) == \A n \in hs : LET d == Decide27(n, hs, {}, {}) IN ~Replicates(d) /\ d.del = "none"
-NoTasks(hs) == \A n \in hs : ~Replicates(Decide27(n, hs, {}, {}))
- \* a check "replicates" when it hands the replicator a task with at least one candidate node. (With overlapping
-\* rules the code as found keeps calling the replicator with an EMPTY candidate list: a holder remembered from
-\* an earlier rule does not lower the shortage of a later rule - a phantom shortage that copies nothing.)
-Replicates(d) == \E k \in 1..Len(d.tasks) : Len(d.tasks[k].nodes) > 0
-Quiet(hs) == \A n \in hs : LET d == Decide27(n, hs, {}, {}) IN ~Replicates(d) /\ d.del = "none"
-NoTasks(hs) == \A n \in hs : ~Replicates(Decide27(n, hs, {}, {}))
-a\* a check "replicates" when it hands the replicator a task with at least one candidate node. (With overlapping
-\* rules the code as found keeps calling the replicator with an EMPTY candidate list: a holder remembered from
-\* an earlier rule does not lower the shortage of a later rule - a phantom shortage that copies nothing.)
-Replicates(d) == \E k \in 1..Len(d.tasks) : Len(d.tasks[k].nodes) > 0
-Quiet(hs) == \A n \in hs : LET d == Decide27(n, hs, {}, {}) IN ~Replicates(d) /\ d.del = "none"
-NoTasks(hs) == \A n \in hs : ~Replicates(Decide27(n, hs, {}, {}))
-p\* a check "replicates" when it hands the replicator a task with at least one candidate node. (With overlapping
-\* rules the code as found keeps calling the replicator with an EMPTY candidate list: a holder remembered from
-\* an earlier rule does not lower the shortage of a later rule - a phantom shortage that copies nothing.)
-Replicates(d) == \E k \in 1..Len(d.tasks) : Len(d.tasks[k].nodes) > 0
-Quiet(hs) == \A n \in hs : LET d == Decide27(n, hs, {}, {}) IN ~Replicates(d) /\ d.del = "none"
-NoTasks(hs) == \A n \in hs : ~Replicates(Decide27(n, hs, {}, {}))
-a\* a check "replicates" when it hands the replicator a task with at least one candidate node. (With overlapping
-\* rules the code as found keeps calling the replicator with an EMPTY candidate list: a holder remembered from
-\* an earlier rule does not lower the shortage of a later rule - a phantom shortage that copies nothing.)
-Replicates(d) == \E k \in 1..Len(d.tasks) : Len(d.tasks[k].nodes) > 0
-Quiet(hs) == \A n \in hs : LET d == Decide27(n, hs, {}, {}) IN ~Replicates(d) /\ d.del = "none"
-NoTasks(hs) == \A n \in hs : ~Replicates(Decide27(n, hs, {}, {}))
-r\* a check "replicates" when it hands the replicator a task with at least one candidate node. (With overlapping
-\* rules the code as found keeps calling the replicator with an EMPTY candidate list: a holder remembered from
-\* an earlier rule does not lower the shortage of a later rule - a phantom shortage that copies nothing.)
-Replicates(d) == \E k \in 1..Len(d.tasks) : Len(d.tasks[k].nodes) > 0
-Quiet(hs) == \A n \in hs : LET d == Decide27(n, hs, {}, {}) IN ~Replicates(d) /\ d.del = "none"
-NoTasks(hs) == \A n \in hs : ~Replicates(Decide27(n, hs, {}, {}))
-t\* a check "replicates" when it hands the replicator a task with at least one candidate node. (With overlapping
-\* rules the code as found keeps calling the replicator with an EMPTY candidate list: a holder remembered from
-\* an earlier rule does not lower the shortage of a later rule - a phantom shortage that copies nothing.)
-Replicates(d) == \E k \in 1..Len(d.tasks) : Len(d.tasks[k].nodes) > 0
-Quiet(hs) == \A n \in hs : LET d == Decide27(n, hs, {}, {}) IN ~Replicates(d) /\ d.del = "none"
-NoTasks(hs) == \A n \in hs : ~Replicates(Decide27(n, hs, {}, {}))
-)\* a check "replicates" when it hands the replicator a task with at least one candidate node. (With overlapping
-\* rules the code as found keeps calling the replicator with an EMPTY candidate list: a holder remembered from
-\* an earlier rule does not lower the shortage of a later rule - a phantom shortage that copies nothing.)
-Replicates(d) == \E k \in 1..Len(d.tasks) : Len(d.tasks[k].nodes) > 0
-Quiet(hs) == \A n \in hs : LET d == Decide27(n, hs, {}, {}) IN ~Replicates(d) /\ d.del = "none"
-NoTasks(hs) == \A n \in hs : ~Replicates(Decide27(n, hs, {}, {}))
-,\* a check "replicates" when it hands the replicator a task with at least one candidate node. (With overlapping
-\* rules the code as found keeps calling the replicator with an EMPTY candidate list: a holder remembered from
-\* an earlier rule does not lower the shortage of a later rule - a phantom shortage that copies nothing.)
-Replicates(d) == \E k \in 1..Len(d.tasks) : Len(d.tasks[k].nodes) > 0
-Quiet(hs) == \A n \in hs : LET d == Decide27(n, hs, {}, {}) IN ~Replicates(d) /\ d.del = "none"
-NoTasks(hs) == \A n \in hs : ~Replicates(Decide27(n, hs, {}, {}))
- \* a check "replicates" when it hands the replicator a task with at least one candidate node. (With overlapping
-\* rules the code as found keeps calling the replicator with an EMPTY candidate list: a holder remembered from
-\* an earlier rule does not lower the shortage of a later rule - a phantom shortage that copies nothing.)
-Replicates(d) == \E k \in 1..Len(d.tasks) : Len(d.tasks[k].nodes) > 0
-Quiet(hs) == \A n \in hs : LET d == Decide27(n, hs, {}, {}) IN ~Replicates(d) /\ d.del = "none"
-NoTasks(hs) == \A n \in hs : ~Replicates(Decide27(n, hs, {}, {}))
-e\* a check "replicates" when it hands the replicator a task with at least one candidate node. (With overlapping
-\* rules the code as found keeps calling the replicator with an EMPTY candidate list: a holder remembered from
-\* an earlier rule does not lower the shortage of a later rule - a phantom shortage that copies nothing.)
-Replicates(d) == \E k \in 1..Len(d.tasks) : Len(d.tasks[k].nodes) > 0
-Quiet(hs) == \A n \in hs : LET d == Decide27(n, hs, {}, {}) IN ~Replicates(d) /\ d.del = "none"
-NoTasks(hs) == \A n \in hs : ~Replicates(Decide27(n, hs, {}, {}))
-v\* a check "replicates" when it hands the replicator a task with at least one candidate node. (With overlapping
-\* rules the code as found keeps calling the replicator with an EMPTY candidate list: a holder remembered from
-\* an earlier rule does not lower the shortage of a later rule - a phantom shortage that copies nothing.)
-Replicates(d) == \E k \in 1..Len(d.tasks) : Len(d.tasks[k].nodes) > 0
-Quiet(hs) == \A n \in hs : LET d == Decide27(n, hs, {}, {}) IN ~Replicates(d) /\ d.del = "none"
-NoTasks(hs) == \A n \in hs : ~Replicates(Decide27(n, hs, {}, {}))
-a\* a check "replicates" when it hands the replicator a task with at least one candidate node. (With overlapping
-\* rules the code as found keeps calling the replicator with an EMPTY candidate list: a holder remembered from
-\* an earlier rule does not lower the shortage of a later rule - a phantom shortage that copies nothing.)
-Replicates(d) == \E k \in 1..Len(d.tasks) : Len(d.tasks[k].nodes) > 0
-Quiet(hs) == \A n \in hs : LET d == Decide27(n, hs, {}, {}) IN ~Replicates(d) /\ d.del = "none"
-NoTasks(hs) == \A n \in hs : ~Replicates(Decide27(n, hs, {}, {}))
-l\* a check "replicates" when it hands the replicator a task with at least one candidate node. (With overlapping
-\* rules the code as found keeps calling the replicator with an EMPTY candidate list: a holder remembered from
-\* an earlier rule does not lower the shortage of a later rule - a phantom shortage that copies nothing.)
-Replicates(d) == \E k \in 1..Len(d.tasks) : Len(d.tasks[k].nodes) > 0
-Quiet(hs) == \A n \in hs : LET d == Decide27(n, hs, {}, {}) IN ~Replicates(d) /\ d.del = "none"
-NoTasks(hs) == \A n \in hs : ~Replicates(Decide27(n, hs, {}, {}))
-u\* a check "replicates" when it hands the replicator a task with at least one candidate node. (With overlapping
-\* rules the code as found keeps calling the replicator with an EMPTY candidate list: a holder remembered from
-\* an earlier rule does not lower the shortage of a later rule - a phantom shortage that copies nothing.)
-Replicates(d) == \E k \in 1..Len(d.tasks) : Len(d.tasks[k].nodes) > 0
-Quiet(hs) == \A n \in hs : LET d == Decide27(n, hs, {}, {}) IN ~Replicates(d) /\ d.del = "none"
-NoTasks(hs) == \A n \in hs : ~Replicates(Decide27(n, hs, {}, {}))
-a\* a check "replicates" when it hands the replicator a task with at least one candidate node. (With overlapping
-\* rules the code as found keeps calling the replicator with an EMPTY candidate list: a holder remembered from
-\* an earlier rule does not lower the shortage of a later rule - a phantom shortage that copies nothing.)
-Replicates(d) == \E k \in 1..Len(d.tasks) : Len(d.tasks[k].nodes) > 0
-Quiet(hs) == \A n \in hs : LET d == Decide27(n, hs, {}, {}) IN ~Replicates(d) /\ d.del = "none"
-NoTasks(hs) == \A n \in hs : ~Replicates(Decide27(n, hs, {}, {}))
-t\* a check "replicates" when it hands the replicator a task with at least one candidate node. (With overlapping
-\* rules the code as found keeps calling the replicator with an EMPTY candidate list: a holder remembered from
-\* an earlier rule does not lower the shortage of a later rule - a phantom shortage that copies nothing.)
-Replicates(d) == \E k \in 1..Len(d.tasks) : Len(d.tasks[k].nodes) > 0
-Quiet(hs) == \A n \in hs : LET d == Decide27(n, hs, {}, {}) IN ~Replicates(d) /\ d.del = "none"
-NoTasks(hs) == \A n \in hs : ~Replicates(Decide27(n, hs, {}, {}))
-e\* a check "replicates" when it hands the replicator a task with at least one candidate node. (With overlapping
-\* rules the code as found keeps calling the replicator with an EMPTY candidate list: a holder remembered from
-\* an earlier rule does not lower the shortage of a later rule - a phantom shortage that copies nothing.)
-Replicates(d) == \E k \in 1..Len(d.tasks) : Len(d.tasks[k].nodes) > 0
-Quiet(hs) == \A n \in hs : LET d == Decide27(n, hs, {}, {}) IN ~Replicates(d) /\ d.del = "none"
-NoTasks(hs) == \A n \in hs : ~Replicates(Decide27(n, hs, {}, {}))
-d\* a check "replicates" when it hands the replicator a task with at least one candidate node. (With overlapping
-\* rules the code as found keeps calling the replicator with an EMPTY candidate list: a holder remembered from
-\* an earlier rule does not lower the shortage of a later rule - a phantom shortage that copies nothing.)
-Replicates(d) == \E k \in 1..Len(d.tasks) : Len(d.tasks[k].nodes) > 0
-Quiet(hs) == \A n \in hs : LET d == Decide27(n, hs, {}, {}) IN ~Replicates(d) /\ d.del = "none"
-NoTasks(hs) == \A n \in hs : ~Replicates(Decide27(n, hs, {}, {}))
- \* a check "replicates" when it hands the replicator a task with at least one candidate node. (With overlapping
-\* rules the code as found keeps calling the replicator with an EMPTY candidate list: a holder remembered from
-\* an earlier rule does not lower the shortage of a later rule - a phantom shortage that copies nothing.)
-Replicates(d) == \E k \in 1..Len(d.tasks) : Len(d.tasks[k].nodes) > 0
-Quiet(hs) == \A n \in hs : LET d == Decide27(n, hs, {}, {}) IN ~Replicates(d) /\ d.del = "none"
-NoTasks(hs) == \A n \in hs : ~Replicates(Decide27(n, hs, {}, {}))
-w\* a check "replicates" when it hands the replicator a task with at least one candidate node. (With overlapping
-\* rules the code as found keeps calling the replicator with an EMPTY candidate list: a holder remembered from
-\* an earlier rule does not lower the shortage of a later rule - a phantom shortage that copies nothing.)
-Replicates(d) == \E k \in 1..Len(d.tasks) : Len(d.tasks[k].nodes) > 0
-Quiet(hs) == \A n \in hs : LET d == Decide27(n, hs, {}, {}) IN ~Replicates(d) /\ d.del = "none"
-NoTasks(hs) == \A n \in hs : ~Replicates(Decide27(n, hs, {}, {}))
-i\* a check "replicates" when it hands the replicator a task with at least one candidate node. (With overlapping
-\* rules the code as found keeps calling the replicator with an EMPTY candidate list: a holder remembered from
-\* an earlier rule does not lower the shortage of a later rule - a phantom shortage that copies nothing.)
-Replicates(d) == \E k \in 1..Len(d.tasks) : Len(d.tasks[k].nodes) > 0
-Quiet(hs) == \A n \in hs : LET d == Decide27(n, hs, {}, {}) IN ~Replicates(d) /\ d.del = "none"
-NoTasks(hs) == \A n \in hs : ~Replicates(Decide27(n, hs, {}, {}))
-t\* a check "replicates" when it hands the replicator a task with at least one candidate node. (With overlapping
-\* rules the code as found keeps calling the replicator with an EMPTY candidate list: a holder remembered from
-\* an earlier rule does not lower the shortage of a later rule - a phantom shortage that copies nothing.)
-Replicates(d) == \E k \in 1..Len(d.tasks) : Len(d.tasks[k].nodes) > 0
-Quiet(hs) == \A n \in hs : LET d == Decide27(n, hs, {}, {}) IN ~Replicates(d) /\ d.del = "none"
-NoTasks(hs) == \A n \in hs : ~Replicates(Decide27(n, hs, {}, {}))
-h\* a check "replicates" when it hands the replicator a task with at least one candidate node. (With overlapping
-\* rules the code as found keeps calling the replicator with an EMPTY candidate list: a holder remembered from
-\* an earlier rule does not lower the shortage of a later rule - a phantom shortage that copies nothing.)
-Replicates(d) == \E k \in 1..Len(d.tasks) : Len(d.tasks[k].nodes) > 0
-Quiet(hs) == \A n \in hs : LET d == Decide27(n, hs, {}, {}) IN ~Replicates(d) /\ d.del = "none"
-NoTasks(hs) == \A n \in hs : ~Replicates(Decide27(n, hs, {}, {}))
- \* a check "replicates" when it hands the replicator a task with at least one candidate node. (With overlapping
-\* rules the code as found keeps calling the replicator with an EMPTY candidate list: a holder remembered from
-\* an earlier rule does not lower the shortage of a later rule - a phantom shortage that copies nothing.)
-Replicates(d) == \E k \in 1..Len(d.tasks) : Len(d.tasks[k].nodes) > 0
-Quiet(hs) == \A n \in hs : LET d == Decide27(n, hs, {}, {}) IN ~Replicates(d) /\ d.del = "none"
-NoTasks(hs) == \A n \in hs : ~Replicates(Decide27(n, hs, {}, {}))
-t\* a check "replicates" when it hands the replicator a task with at least one candidate node. (With overlapping
-\* rules the code as found keeps calling the replicator with an EMPTY candidate list: a holder remembered from
-\* an earlier rule does not lower the shortage of a later rule - a phantom shortage that copies nothing.)
-Replicates(d) == \E k \in 1..Len(d.tasks) : Len(d.tasks[k].nodes) > 0
-Quiet(hs) == \A n \in hs : LET d == Decide27(n, hs, {}, {}) IN ~Replicates(d) /\ d.del = "none"
-NoTasks(hs) == \A n \in hs : ~Replicates(Decide27(n, hs, {}, {}))
-h\* a check "replicates" when it hands the replicator a task with at least one candidate node. (With overlapping
-\* rules the code as found keeps calling the replicator with an EMPTY candidate list: a holder remembered from
-\* an earlier rule does not lower the shortage of a later rule - a phantom shortage that copies nothing.)
-Replicates(d) == \E k \in 1..Len(d.tasks) : Len(d.tasks[k].nodes) > 0
-Quiet(hs) == \A n \in hs : LET d == Decide27(n, hs, {}, {}) IN ~Replicates(d) /\ d.del = "none"
-NoTasks(hs) == \A n \in hs : ~Replicates(Decide27(n, hs, {}, {}))
-e\* a check "replicates" when it hands the replicator a task with at least one candidate node. (With overlapping
-\* rules the code as found keeps calling the replicator with an EMPTY candidate list: a holder remembered from
-\* an earlier rule does not lower the shortage of a later rule - a phantom shortage that copies nothing.)
-Replicates(d) == \E k \in 1..Len(d.tasks) : Len(d.tasks[k].nodes) > 0
-Quiet(hs) == \A n \in hs : LET d == Decide27(n, hs, {}, {}) IN ~Replicates(d) /\ d.del = "none"
-NoTasks(hs) == \A n \in hs : ~Replicates(Decide27(n, hs, {}, {}))
- \* a check "replicates" when it hands the replicator a task with at least one candidate node. (With overlapping
-\* rules the code as found keeps calling the replicator with an EMPTY candidate list: a holder remembered from
-\* an earlier rule does not lower the shortage of a later rule - a phantom shortage that copies nothing.)
-Replicates(d) == \E k \in 1..Len(d.tasks) : Len(d.tasks[k].nodes) > 0
-Quiet(hs) == \A n \in hs : LET d == Decide27(n, hs, {}, {}) IN ~Replicates(d) /\ d.del = "none"
-NoTasks(hs) == \A n \in hs : ~Replicates(Decide27(n, hs, {}, {}))
-a\* a check "replicates" when it hands the replicator a task with at least one candidate node. (With overlapping
-\* rules the code as found keeps calling the replicator with an EMPTY candidate list: a holder remembered from
-\* an earlier rule does not lower the shortage of a later rule - a phantom shortage that copies nothing.)
-Replicates(d) == \E k \in 1..Len(d.tasks) : Len(d.tasks[k].nodes) > 0
-Quiet(hs) == \A n \in hs : LET d == Decide27(n, hs, {}, {}) IN ~Replicates(d) /\ d.del = "none"
-NoTasks(hs) == \A n \in hs : ~Replicates(Decide27(n, hs, {}, {}))
-n\* a check "replicates" when it hands the replicator a task with at least one candidate node. (With overlapping
-\* rules the code as found keeps calling the replicator with an EMPTY candidate list: a holder remembered from
-\* an earlier rule does not lower the shortage of a later rule - a phantom shortage that copies nothing.)
-Replicates(d) == \E k \in 1..Len(d.tasks) : Len(d.tasks[k].nodes) > 0
-Quiet(hs) == \A n \in hs : LET d == Decide27(n, hs, {}, {}) IN ~Replicates(d) /\ d.del = "none"
-NoTasks(hs) == \A n \in hs : ~Replicates(Decide27(n, hs, {}, {}))
-s\* a check "replicates" when it hands the replicator a task with at least one candidate node. (With overlapping
-\* rules the code as found keeps calling the replicator with an EMPTY candidate list: a holder remembered from
-\* an earlier rule does not lower the shortage of a later rule - a phantom shortage that copies nothing.)
-Replicates(d) == \E k \in 1..Len(d.tasks) : Len(d.tasks[k].nodes) > 0
-Quiet(hs) == \A n \in hs : LET d == Decide27(n, hs, {}, {}) IN ~Replicates(d) /\ d.del = "none"
-NoTasks(hs) == \A n \in hs : ~Replicates(Decide27(n, hs, {}, {}))
-w\* a check "replicates" when it hands the replicator a task with at least one candidate node. (With overlapping
-\* rules the code as found keeps calling the replicator with an EMPTY candidate list: a holder remembered from
-\* an earlier rule does not lower the shortage of a later rule - a phantom shortage that copies nothing.)
-Replicates(d) == \E k \in 1..Len(d.tasks) : Len(d.tasks[k].nodes) > 0
-Quiet(hs) == \A n \in hs : LET d == Decide27(n, hs, {}, {}) IN ~Replicates(d) /\ d.del = "none"
-NoTasks(hs) == \A n \in hs : ~Replicates(Decide27(n, hs, {}, {}))
-e\* a check "replicates" when it hands the replicator a task with at least one candidate node. (With overlapping
-\* rules the code as found keeps calling the replicator with an EMPTY candidate list: a holder remembered from
-\* an earlier rule does not lower the shortage of a later rule - a phantom shortage that copies nothing.)
-Replicates(d) == \E k \in 1..Len(d.tasks) : Len(d.tasks[k].nodes) > 0
-Quiet(hs) == \A n \in hs : LET d == Decide27(n, hs, {}, {}) IN ~Replicates(d) /\ d.del = "none"
-NoTasks(hs) == \A n \in hs : ~Replicates(Decide27(n, hs, {}, {}))
-r\* a check "replicates" when it hands the replicator a task with at least one candidate node. (With overlapping
-\* rules the code as found keeps calling the replicator with an EMPTY candidate list: a holder remembered from
-\* an earlier rule does not lower the shortage of a later rule - a phantom shortage that copies nothing.)
-Replicates(d) == \E k \in 1..Len(d.tasks) : Len(d.tasks[k].nodes) > 0
-Quiet(hs) == \A n \in hs : LET d == Decide27(n, hs, {}, {}) IN ~Replicates(d) /\ d.del = "none"
-NoTasks(hs) == \A n \in hs : ~Replicates(Decide27(n, hs, {}, {}))
-s\* a check "replicates" when it hands the replicator a task with at least one candidate node. (With overlapping
-\* rules the code as found keeps calling the replicator with an EMPTY candidate list: a holder remembered from
-\* an earlier rule does not lower the shortage of a later rule - a phantom shortage that copies nothing.)
-Replicates(d) == \E k \in 1..Len(d.tasks) : Len(d.tasks[k].nodes) > 0
-Quiet(hs) == \A n \in hs : LET d == Decide27(n, hs, {}, {}) IN ~Replicates(d) /\ d.del = "none"
-NoTasks(hs) == \A n \in hs : ~Replicates(Decide27(n, hs, {}, {}))
- \* a check "replicates" when it hands the replicator a task with at least one candidate node. (With overlapping
-\* rules the code as found keeps calling the replicator with an EMPTY candidate list: a holder remembered from
-\* an earlier rule does not lower the shortage of a later rule - a phantom shortage that copies nothing.)
-Replicates(d) == \E k \in 1..Len(d.tasks) : Len(d.tasks[k].nodes) > 0
-Quiet(hs) == \A n \in hs : LET d == Decide27(n, hs, {}, {}) IN ~Replicates(d) /\ d.del = "none"
-NoTasks(hs) == \A n \in hs : ~Replicates(Decide27(n, hs, {}, {}))
-t\* a check "replicates" when it hands the replicator a task with at least one candidate node. (With overlapping
-\* rules the code as found keeps calling the replicator with an EMPTY candidate list: a holder remembered from
-\* an earlier rule does not lower the shortage of a later rule - a phantom shortage that copies nothing.)
-Replicates(d) == \E k \in 1..Len(d.tasks) : Len(d.tasks[k].nodes) > 0
-Quiet(hs) == \A n \in hs : LET d == Decide27(n, hs, {}, {}) IN ~Replicates(d) /\ d.del = "none"
-NoTasks(hs) == \A n \in hs : ~Replicates(Decide27(n, hs, {}, {}))
-h\* a check "replicates" when it hands the replicator a task with at least one candidate node. (With overlapping
-\* rules the code as found keeps calling the replicator with an EMPTY candidate list: a holder remembered from
-\* an earlier rule does not lower the shortage of a later rule - a phantom shortage that copies nothing.)
-Replicates(d) == \E k \in 1..Len(d.tasks) : Len(d.tasks[k].nodes) > 0
-Quiet(hs) == \A n \in hs : LET d == Decide27(n, hs, {}, {}) IN ~Replicates(d) /\ d.del = "none"
-NoTasks(hs) == \A n \in hs : ~Replicates(Decide27(n, hs, {}, {}))
-e\* a check "replicates" when it hands the replicator a task with at least one candidate node. (With overlapping
-\* rules the code as found keeps calling the replicator with an EMPTY candidate list: a holder remembered from
-\* an earlier rule does not lower the shortage of a later rule - a phantom shortage that copies nothing.)
-Replicates(d) == \E k \in 1..Len(d.tasks) : Len(d.tasks[k].nodes) > 0
-Quiet(hs) == \A n \in hs : LET d == Decide27(n, hs, {}, {}) IN ~Replicates(d) /\ d.del = "none"
-NoTasks(hs) == \A n \in hs : ~Replicates(Decide27(n, hs, {}, {}))
- \* a check "replicates" when it hands the replicator a task with at least one candidate node. (With overlapping
-\* rules the code as found keeps calling the replicator with an EMPTY candidate list: a holder remembered from
-\* an earlier rule does not lower the shortage of a later rule - a phantom shortage that copies nothing.)
-Replicates(d) == \E k \in 1..Len(d.tasks) : Len(d.tasks[k].nodes) > 0
-Quiet(hs) == \A n \in hs : LET d == Decide27(n, hs, {}, {}) IN ~Replicates(d) /\ d.del = "none"
-NoTasks(hs) == \A n \in hs : ~Replicates(Decide27(n, hs, {}, {}))
-o\* a check "replicates" when it hands the replicator a task with at least one candidate node. (With overlapping
-\* rules the code as found keeps calling the replicator with an EMPTY candidate list: a holder remembered from
-\* an earlier rule does not lower the shortage of a later rule - a phantom shortage that copies nothing.)
-Replicates(d) == \E k \in 1..Len(d.tasks) : Len(d.tasks[k].nodes) > 0
-Quiet(hs) == \A n \in hs : LET d == Decide27(n, hs, {}, {}) IN ~Replicates(d) /\ d.del = "none"
-NoTasks(hs) == \A n \in hs : ~Replicates(Decide27(n, hs, {}, {}))
-t\* a check "replicates" when it hands the replicator a task with at least one candidate node. (With overlapping
-\* rules the code as found keeps calling the replicator with an EMPTY candidate list: a holder remembered from
-\* an earlier rule does not lower the shortage of a later rule - a phantom shortage that copies nothing.)
-Replicates(d) == \E k \in 1..Len(d.tasks) : Len(d.tasks[k].nodes) > 0
-Quiet(hs) == \A n \in hs : LET d == Decide27(n, hs, {}, {}) IN ~Replicates(d) /\ d.del = "none"
-NoTasks(hs) == \A n \in hs : ~Replicates(Decide27(n, hs, {}, {}))
-h\* a check "replicates" when it hands the replicator a task with at least one candidate node. (With overlapping
-\* rules the code as found keeps calling the replicator with an EMPTY candidate list: a holder remembered from
-\* an earlier rule does not lower the shortage of a later rule - a phantom shortage that copies nothing.)
-Replicates(d) == \E k \in 1..Len(d.tasks) : Len(d.tasks[k].nodes) > 0
-Quiet(hs) == \A n \in hs : LET d == Decide27(n, hs, {}, {}) IN ~Replicates(d) /\ d.del = "none"
-NoTasks(hs) == \A n \in hs : ~Replicates(Decide27(n, hs, {}, {}))
-e\* a check "replicates" when it hands the replicator a task with at least one candidate node. (With overlapping
-\* rules the code as found keeps calling the replicator with an EMPTY candidate list: a holder remembered from
-\* an earlier rule does not lower the shortage of a later rule - a phantom shortage that copies nothing.)
-Replicates(d) == \E k \in 1..Len(d.tasks) : Len(d.tasks[k].nodes) > 0
-Quiet(hs) == \A n \in hs : LET d == Decide27(n, hs, {}, {}) IN ~Replicates(d) /\ d.del = "none"
-NoTasks(hs) == \A n \in hs : ~Replicates(Decide27(n, hs, {}, {}))
-r\* a check "replicates" when it hands the replicator a task with at least one candidate node. (With overlapping
-\* rules the code as found keeps calling the replicator with an EMPTY candidate list: a holder remembered from
-\* an earlier rule does not lower the shortage of a later rule - a phantom shortage that copies nothing.)
-Replicates(d) == \E k \in 1..Len(d.tasks) : Len(d.tasks[k].nodes) > 0
-Quiet(hs) == \A n \in hs : LET d == Decide27(n, hs, {}, {}) IN ~Replicates(d) /\ d.del = "none"
-NoTasks(hs) == \A n \in hs : ~Replicates(Decide27(n, hs, {}, {}))
- \* a check "replicates" when it hands the replicator a task with at least one candidate node. (With overlapping
-\* rules the code as found keeps calling the replicator with an EMPTY candidate list: a holder remembered from
-\* an earlier rule does not lower the shortage of a later rule - a phantom shortage that copies nothing.)
-Replicates(d) == \E k \in 1..Len(d.tasks) : Len(d.tasks[k].nodes) > 0
-Quiet(hs) == \A n \in hs : LET d == Decide27(n, hs, {}, {}) IN ~Replicates(d) /\ d.del = "none"
-NoTasks(hs) == \A n \in hs : ~Replicates(Decide27(n, hs, {}, {}))
-n\* a check "replicates" when it hands the replicator a task with at least one candidate node. (With overlapping
-\* rules the code as found keeps calling the replicator with an EMPTY candidate list: a holder remembered from
-\* an earlier rule does not lower the shortage of a later rule - a phantom shortage that copies nothing.)
-Replicates(d) == \E k \in 1..Len(d.tasks) : Len(d.tasks[k].nodes) > 0
-Quiet(hs) == \A n \in hs : LET d == Decide27(n, hs, {}, {}) IN ~Replicates(d) /\ d.del = "none"
-NoTasks(hs) == \A n \in hs : ~Replicates(Decide27(n, hs, {}, {}))
-o\* a check "replicates" when it hands the replicator a task with at least one candidate node. (With overlapping
-\* rules the code as found keeps calling the replicator with an EMPTY candidate list: a holder remembered from
-\* an earlier rule does not lower the shortage of a later rule - a phantom shortage that copies nothing.)
-Replicates(d) == \E k \in 1..Len(d.tasks) : Len(d.tasks[k].nodes) > 0
-Quiet(hs) == \A n \in hs : LET d == Decide27(n, hs, {}, {}) IN ~Replicates(d) /\ d.del = "none"
-NoTasks(hs) == \A n \in hs : ~Replicates(Decide27(n, hs, {}, {}))
-d\* a check "replicates" when it hands the replicator a task with at least one candidate node. (With overlapping
-\* rules the code as found keeps calling the replicator with an EMPTY candidate list: a holder remembered from
-\* an earlier rule does not lower the shortage of a later rule - a phantom shortage that copies nothing.)
-Replicates(d) == \E k \in 1..Len(d.tasks) : Len(d.tasks[k].nodes) > 0
-Quiet(hs) == \A n \in hs : LET d == Decide27(n, hs, {}, {}) IN ~Replicates(d) /\ d.del = "none"
-NoTasks(hs) == \A n \in hs : ~Replicates(Decide27(n, hs, {}, {}))
-e\* a check "replicates" when it hands the replicator a task with at least one candidate node. (With overlapping
-\* rules the code as found keeps calling the replicator with an EMPTY candidate list: a holder remembered from
-\* an earlier rule does not lower the shortage of a later rule - a phantom shortage that copies nothing.)
-Replicates(d) == \E k \in 1..Len(d.tasks) : Len(d.tasks[k].nodes) > 0
-Quiet(hs) == \A n \in hs : LET d == Decide27(n, hs, {}, {}) IN ~Replicates(d) /\ d.del = "none"
-NoTasks(hs) == \A n \in hs : ~Replicates(Decide27(n, hs, {}, {}))
-s\* a check "replicates" when it hands the replicator a task with at least one candidate node. (With overlapping
-\* rules the code as found keeps calling the replicator with an EMPTY candidate list: a holder remembered from
-\* an earlier rule does not lower the shortage of a later rule - a phantom shortage that copies nothing.)
-Replicates(d) == \E k \in 1..Len(d.tasks) : Len(d.tasks[k].nodes) > 0
-Quiet(hs) == \A n \in hs : LET d == Decide27(n, hs, {}, {}) IN ~Replicates(d) /\ d.del = "none"
-NoTasks(hs) == \A n \in hs : ~Replicates(Decide27(n, hs, {}, {}))
- \* a check "replicates" when it hands the replicator a task with at least one candidate node. (With overlapping
-\* rules the code as found keeps calling the replicator with an EMPTY candidate list: a holder remembered from
-\* an earlier rule does not lower the shortage of a later rule - a phantom shortage that copies nothing.)
-Replicates(d) == \E k \in 1..Len(d.tasks) : Len(d.tasks[k].nodes) > 0
-Quiet(hs) == \A n \in hs : LET d == Decide27(n, hs, {}, {}) IN ~Replicates(d) /\ d.del = "none"
-NoTasks(hs) == \A n \in hs : ~Replicates(Decide27(n, hs, {}, {}))
-w\* a check "replicates" when it hands the replicator a task with at least one candidate node. (With overlapping
-\* rules the code as found keeps calling the replicator with an EMPTY candidate list: a holder remembered from
-\* an earlier rule does not lower the shortage of a later rule - a phantom shortage that copies nothing.)
-Replicates(d) == \E k \in 1..Len(d.tasks) : Len(d.tasks[k].nodes) > 0
-Quiet(hs) == \A n \in hs : LET d == Decide27(n, hs, {}, {}) IN ~Replicates(d) /\ d.del = "none"
-NoTasks(hs) == \A n \in hs : ~Replicates(Decide27(n, hs, {}, {}))
-o\* a check "replicates" when it hands the replicator a task with at least one candidate node. (With overlapping
-\* rules the code as found keeps calling the replicator with an EMPTY candidate list: a holder remembered from
-\* an earlier rule does not lower the shortage of a later rule - a phantom shortage that copies nothing.)
-Replicates(d) == \E k \in 1..Len(d.tasks) : Len(d.tasks[k].nodes) > 0
-Quiet(hs) == \A n \in hs : LET d == Decide27(n, hs, {}, {}) IN ~Replicates(d) /\ d.del = "none"
-NoTasks(hs) == \A n \in hs : ~Replicates(Decide27(n, hs, {}, {}))
-u\* a check "replicates" when it hands the replicator a task with at least one candidate node. (With overlapping
-\* rules the code as found keeps calling the replicator with an EMPTY candidate list: a holder remembered from
-\* an earlier rule does not lower the shortage of a later rule - a phantom shortage that copies nothing.)
-Replicates(d) == \E k \in 1..Len(d.tasks) : Len(d.tasks[k].nodes) > 0
-Quiet(hs) == \A n \in hs : LET d == Decide27(n, hs, {}, {}) IN ~Replicates(d) /\ d.del = "none"
-NoTasks(hs) == \A n \in hs : ~Replicates(Decide27(n, hs, {}, {}))
-l\* a check "replicates" when it hands the replicator a task with at least one candidate node. (With overlapping
-\* rules the code as found keeps calling the replicator with an EMPTY candidate list: a holder remembered from
-\* an earlier rule does not lower the shortage of a later rule - a phantom shortage that copies nothing.)
-Replicates(d) == \E k \in 1..Len(d.tasks) : Len(d.tasks[k].nodes) > 0
-Quiet(hs) == \A n \in hs : LET d == Decide27(n, hs, {}, {}) IN ~Replicates(d) /\ d.del = "none"
-NoTasks(hs) == \A n \in hs : ~Replicates(Decide27(n, hs, {}, {}))
-d\* a check "replicates" when it hands the replicator a task with at least one candidate node. (With overlapping
-\* rules the code as found keeps calling the replicator with an EMPTY candidate list: a holder remembered from
-\* an earlier rule does not lower the shortage of a later rule - a phantom shortage that copies nothing.)
-Replicates(d) == \E k \in 1..Len(d.tasks) : Len(d.tasks[k].nodes) > 0
-Quiet(hs) == \A n \in hs : LET d == Decide27(n, hs, {}, {}) IN ~Replicates(d) /\ d.del = "none"
-NoTasks(hs) == \A n \in hs : ~Replicates(Decide27(n, hs, {}, {}))
- \* a check "replicates" when it hands the replicator a task with at least one candidate node. (With overlapping
-\* rules the code as found keeps calling the replicator with an EMPTY candidate list: a holder remembered from
-\* an earlier rule does not lower the shortage of a later rule - a phantom shortage that copies nothing.)
-Replicates(d) == \E k \in 1..Len(d.tasks) : Len(d.tasks[k].nodes) > 0
-Quiet(hs) == \A n \in hs : LET d == Decide27(n, hs, {}, {}) IN ~Replicates(d) /\ d.del = "none"
-NoTasks(hs) == \A n \in hs : ~Replicates(Decide27(n, hs, {}, {}))
-g\* a check "replicates" when it hands the replicator a task with at least one candidate node. (With overlapping
-\* rules the code as found keeps calling the replicator with an EMPTY candidate list: a holder remembered from
-\* an earlier rule does not lower the shortage of a later rule - a phantom shortage that copies nothing.)
-Replicates(d) == \E k \in 1..Len(d.tasks) : Len(d.tasks[k].nodes) > 0
-Quiet(hs) == \A n \in hs : LET d == Decide27(n, hs, {}, {}) IN ~Replicates(d) /\ d.del = "none"
-NoTasks(hs) == \A n \in hs : ~Replicates(Decide27(n, hs, {}, {}))
-i\* a check "replicates" when it hands the replicator a task with at least one candidate node. (With overlapping
-\* rules the code as found keeps calling the replicator with an EMPTY candidate list: a holder remembered from
-\* an earlier rule does not lower the shortage of a later rule - a phantom shortage that copies nothing.)
-Replicates(d) == \E k \in 1..Len(d.tasks) : Len(d.tasks[k].nodes) > 0
-Quiet(hs) == \A n \in hs : LET d == Decide27(n, hs, {}, {}) IN ~Replicates(d) /\ d.del = "none"
-NoTasks(hs) == \A n \in hs : ~Replicates(Decide27(n, hs, {}, {}))
-v\* a check "replicates" when it hands the replicator a task with at least one candidate node. (With overlapping
-\* rules the code as found keeps calling the replicator with an EMPTY candidate list: a holder remembered from
-\* an earlier rule does not lower the shortage of a later rule - a phantom shortage that copies nothing.)
-Replicates(d) == \E k \in 1..Len(d.tasks) : Len(d.tasks[k].nodes) > 0
-Quiet(hs) == \A n \in hs : LET d == Decide27(n, hs, {}, {}) IN ~Replicates(d) /\ d.del = "none"
-NoTasks(hs) == \A n \in hs : ~Replicates(Decide27(n, hs, {}, {}))
-e\* a check "replicates" when it hands the replicator a task with at least one candidate node. (With overlapping
-\* rules the code as found keeps calling the replicator with an EMPTY candidate list: a holder remembered from
-\* an earlier rule does not lower the shortage of a later rule - a phantom shortage that copies nothing.)
-Replicates(d) == \E k \in 1..Len(d.tasks) : Len(d.tasks[k].nodes) > 0
-Quiet(hs) == \A n \in hs : LET d == Decide27(n, hs, {}, {}) IN ~Replicates(d) /\ d.del = "none"
-NoTasks(hs) == \A n \in hs : ~Replicates(Decide27(n, hs, {}, {}))
- \* a check "replicates" when it hands the replicator a task with at least one candidate node. (With overlapping
-\* rules the code as found keeps calling the replicator with an EMPTY candidate list: a holder remembered from
-\* an earlier rule does not lower the shortage of a later rule - a phantom shortage that copies nothing.)
-Replicates(d) == \E k \in 1..Len(d.tasks) : Len(d.tasks[k].nodes) > 0
-Quiet(hs) == \A n \in hs : LET d == Decide27(n, hs, {}, {}) IN ~Replicates(d) /\ d.del = "none"
-NoTasks(hs) == \A n \in hs : ~Replicates(Decide27(n, hs, {}, {}))
-r\* a check "replicates" when it hands the replicator a task with at least one candidate node. (With overlapping
-\* rules the code as found keeps calling the replicator with an EMPTY candidate list: a holder remembered from
-\* an earlier rule does not lower the shortage of a later rule - a phantom shortage that copies nothing.)
-Replicates(d) == \E k \in 1..Len(d.tasks) : Len(d.tasks[k].nodes) > 0
-Quiet(hs) == \A n \in hs : LET d == Decide27(n, hs, {}, {}) IN ~Replicates(d) /\ d.del = "none"
-NoTasks(hs) == \A n \in hs : ~Replicates(Decide27(n, hs, {}, {}))
-i\* a check "replicates" when it hands the replicator a task with at least one candidate node. (With overlapping
-\* rules the code as found keeps calling the replicator with an EMPTY candidate list: a holder remembered from
-\* an earlier rule does not lower the shortage of a later rule - a phantom shortage that copies nothing.)
-Replicates(d) == \E k \in 1..Len(d.tasks) : Len(d.tasks[k].nodes) > 0
-Quiet(hs) == \A n \in hs : LET d == Decide27(n, hs, {}, {}) IN ~Replicates(d) /\ d.del = "none"
-NoTasks(hs) == \A n \in hs : ~Replicates(Decide27(n, hs, {}, {}))
-g\* a check "replicates" when it hands the replicator a task with at least one candidate node. (With overlapping
-\* rules the code as found keeps calling the replicator with an EMPTY candidate list: a holder remembered from
-\* an earlier rule does not lower the shortage of a later rule - a phantom shortage that copies nothing.)
-Replicates(d) == \E k \in 1..Len(d.tasks) : Len(d.tasks[k].nodes) > 0
-Quiet(hs) == \A n \in hs : LET d == Decide27(n, hs, {}, {}) IN ~Replicates(d) /\ d.del = "none"
-NoTasks(hs) == \A n \in hs : ~Replicates(Decide27(n, hs, {}, {}))
-h\* a check "replicates" when it hands the replicator a task with at least one candidate node. (With overlapping
-\* rules the code as found keeps calling the replicator with an EMPTY candidate list: a holder remembered from
-\* an earlier rule does not lower the shortage of a later rule - a phantom shortage that copies nothing.)
-Replicates(d) == \E k \in 1..Len(d.tasks) : Len(d.tasks[k].nodes) > 0
-Quiet(hs) == \A n \in hs : LET d == Decide27(n, hs, {}, {}) IN ~Replicates(d) /\ d.del = "none"
-NoTasks(hs) == \A n \in hs : ~Replicates(Decide27(n, hs, {}, {}))
-t\* a check "replicates" when it hands the replicator a task with at least one candidate node. (With overlapping
-\* rules the code as found keeps calling the replicator with an EMPTY candidate list: a holder remembered from
-\* an earlier rule does not lower the shortage of a later rule - a phantom shortage that copies nothing.)
-Replicates(d) == \E k \in 1..Len(d.tasks) : Len(d.tasks[k].nodes) > 0
-Quiet(hs) == \A n \in hs : LET d == Decide27(n, hs, {}, {}) IN ~Replicates(d) /\ d.del = "none"
-NoTasks(hs) == \A n \in hs : ~Replicates(Decide27(n, hs, {}, {}))
- \* a check "replicates" when it hands the replicator a task with at least one candidate node. (With overlapping
-\* rules the code as found keeps calling the replicator with an EMPTY candidate list: a holder remembered from
-\* an earlier rule does not lower the shortage of a later rule - a phantom shortage that copies nothing.)
-Replicates(d) == \E k \in 1..Len(d.tasks) : Len(d.tasks[k].nodes) > 0
-Quiet(hs) == \A n \in hs : LET d == Decide27(n, hs, {}, {}) IN ~Replicates(d) /\ d.del = "none"
-NoTasks(hs) == \A n \in hs : ~Replicates(Decide27(n, hs, {}, {}))
-n\* a check "replicates" when it hands the replicator a task with at least one candidate node. (With overlapping
-\* rules the code as found keeps calling the replicator with an EMPTY candidate list: a holder remembered from
-\* an earlier rule does not lower the shortage of a later rule - a phantom shortage that copies nothing.)
-Replicates(d) == \E k \in 1..Len(d.tasks) : Len(d.tasks[k].nodes) > 0
-Quiet(hs) == \A n \in hs : LET d == Decide27(n, hs, {}, {}) IN ~Replicates(d) /\ d.del = "none"
-NoTasks(hs) == \A n \in hs : ~Replicates(Decide27(n, hs, {}, {}))
-o\* a check "replicates" when it hands the replicator a task with at least one candidate node. (With overlapping
-\* rules the code as found keeps calling the replicator with an EMPTY candidate list: a holder remembered from
-\* an earlier rule does not lower the shortage of a later rule - a phantom shortage that copies nothing.)
-Replicates(d) == \E k \in 1..Len(d.tasks) : Len(d.tasks[k].nodes) > 0
-Quiet(hs) == \A n \in hs : LET d == Decide27(n, hs, {}, {}) IN ~Replicates(d) /\ d.del = "none"
-NoTasks(hs) == \A n \in hs : ~Replicates(Decide27(n, hs, {}, {}))
-w\* a check "replicates" when it hands the replicator a task with at least one candidate node. (With overlapping
-\* rules the code as found keeps calling the replicator with an EMPTY candidate list: a holder remembered from
-\* an earlier rule does not lower the shortage of a later rule - a phantom shortage that copies nothing.)
-Replicates(d) == \E k \in 1..Len(d.tasks) : Len(d.tasks[k].nodes) > 0
-Quiet(hs) == \A n \in hs : LET d == Decide27(n, hs, {}, {}) IN ~Replicates(d) /\ d.del = "none"
-NoTasks(hs) == \A n \in hs : ~Replicates(Decide27(n, hs, {}, {}))
-:\* a check "replicates" when it hands the replicator a task with at least one candidate node. (With overlapping
-\* rules the code as found keeps calling the replicator with an EMPTY candidate list: a holder remembered from
-\* an earlier rule does not lower the shortage of a later rule - a phantom shortage that copies nothing.)
-Replicates(d) == \E k \in 1..Len(d.tasks) : Len(d.tasks[k].nodes) > 0
-Quiet(hs) == \A n \in hs : LET d == Decide27(n, hs, {}, {}) IN ~Replicates(d) /\ d.del = "none"
-NoTasks(hs) == \A n \in hs : ~Replicates(Decide27(n, hs, {}, {}))
-
-\* a check "replicates" when it hands the replicator a task with at least one candidate node. (With overlapping
-\* rules the code as found keeps calling the replicator with an EMPTY candidate list: a holder remembered from
-\* an earlier rule does not lower the shortage of a later rule - a phantom shortage that copies nothing.)
-Replicates(d) == \E k \in 1..Len(d.tasks) : Len(d.tasks[k].nodes) > 0
-Quiet(hs) == \A n \in hs : LET d == Decide27(n, hs, {}, {}) IN ~Replicates(d) /\ d.del = "none"
-NoTasks(hs) == \A n \in hs : ~Replicates(Decide27(n, hs, {}, {}))
- \* a check "replicates" when it hands the replicator a task with at least one candidate node. (With overlapping
-\* rules the code as found keeps calling the replicator with an EMPTY candidate list: a holder remembered from
-\* an earlier rule does not lower the shortage of a later rule - a phantom shortage that copies nothing.)
-Replicates(d) == \E k \in 1..Len(d.tasks) : Len(d.tasks[k].nodes) > 0
-Quiet(hs) == \A n \in hs : LET d == Decide27(n, hs, {}, {}) IN ~Replicates(d) /\ d.del = "none"
-NoTasks(hs) == \A n \in hs : ~Replicates(Decide27(n, hs, {}, {}))
- \* a check "replicates" when it hands the replicator a task with at least one candidate node. (With overlapping
-\* rules the code as found keeps calling the replicator with an EMPTY candidate list: a holder remembered from
-\* an earlier rule does not lower the shortage of a later rule - a phantom shortage that copies nothing.)
-Replicates(d) == \E k \in 1..Len(d.tasks) : Len(d.tasks[k].nodes) > 0
-Quiet(hs) == \A n \in hs : LET d == Decide27(n, hs, {}, {}) IN ~Replicates(d) /\ d.del = "none"
-NoTasks(hs) == \A n \in hs : ~Replicates(Decide27(n, hs, {}, {}))
- \* a check "replicates" when it hands the replicator a task with at least one candidate node. (With overlapping
-\* rules the code as found keeps calling the replicator with an EMPTY candidate list: a holder remembered from
-\* an earlier rule does not lower the shortage of a later rule - a phantom shortage that copies nothing.)
-Replicates(d) == \E k \in 1..Len(d.tasks) : Len(d.tasks[k].nodes) > 0
-Quiet(hs) == \A n \in hs : LET d == Decide27(n, hs, {}, {}) IN ~Replicates(d) /\ d.del = "none"
-NoTasks(hs) == \A n \in hs : ~Replicates(Decide27(n, hs, {}, {}))
-"\* a check "replicates" when it hands the replicator a task with at least one candidate node. (With overlapping
-\* rules the code as found keeps calling the replicator with an EMPTY candidate list: a holder remembered from
-\* an earlier rule does not lower the shortage of a later rule - a phantom shortage that copies nothing.)
-Replicates(d) == \E k \in 1..Len(d.tasks) : Len(d.tasks[k].nodes) > 0
-Quiet(hs) == \A n \in hs : LET d == Decide27(n, hs, {}, {}) IN ~Replicates(d) /\ d.del = "none"
-NoTasks(hs) == \A n \in hs : ~Replicates(Decide27(n, hs, {}, {}))
-h\* a check "replicates" when it hands the replicator a task with at least one candidate node. (With overlapping
-\* rules the code as found keeps calling the replicator with an EMPTY candidate list: a holder remembered from
-\* an earlier rule does not lower the shortage of a later rule - a phantom shortage that copies nothing.)
-Replicates(d) == \E k \in 1..Len(d.tasks) : Len(d.tasks[k].nodes) > 0
-Quiet(hs) == \A n \in hs : LET d == Decide27(n, hs, {}, {}) IN ~Replicates(d) /\ d.del = "none"
-NoTasks(hs) == \A n \in hs : ~Replicates(Decide27(n, hs, {}, {}))
-a\* a check "replicates" when it hands the replicator a task with at least one candidate node. (With overlapping
-\* rules the code as found keeps calling the replicator with an EMPTY candidate list: a holder remembered from
-\* an earlier rule does not lower the shortage of a later rule - a phantom shortage that copies nothing.)
-Replicates(d) == \E k \in 1..Len(d.tasks) : Len(d.tasks[k].nodes) > 0
-Quiet(hs) == \A n \in hs : LET d == Decide27(n, hs, {}, {}) IN ~Replicates(d) /\ d.del = "none"
-NoTasks(hs) == \A n \in hs : ~Replicates(Decide27(n, hs, {}, {}))
-s\* a check "replicates" when it hands the replicator a task with at least one candidate node. (With overlapping
-\* rules the code as found keeps calling the replicator with an EMPTY candidate list: a holder remembered from
-\* an earlier rule does not lower the shortage of a later rule - a phantom shortage that copies nothing.)
-Replicates(d) == \E k \in 1..Len(d.tasks) : Len(d.tasks[k].nodes) > 0
-Quiet(hs) == \A n \in hs : LET d == Decide27(n, hs, {}, {}) IN ~Replicates(d) /\ d.del = "none"
-NoTasks(hs) == \A n \in hs : ~Replicates(Decide27(n, hs, {}, {}))
-"\* a check "replicates" when it hands the replicator a task with at least one candidate node. (With overlapping
-\* rules the code as found keeps calling the replicator with an EMPTY candidate list: a holder remembered from
-\* an earlier rule does not lower the shortage of a later rule - a phantom shortage that copies nothing.)
-Replicates(d) == \E k \in 1..Len(d.tasks) : Len(d.tasks[k].nodes) > 0
-Quiet(hs) == \A n \in hs : LET d == Decide27(n, hs, {}, {}) IN ~Replicates(d) /\ d.del = "none"
-NoTasks(hs) == \A n \in hs : ~Replicates(Decide27(n, hs, {}, {}))
- \* a check "replicates" when it hands the replicator a task with at least one candidate node. (With overlapping
-\* rules the code as found keeps calling the replicator with an EMPTY candidate list: a holder remembered from
-\* an earlier rule does not lower the shortage of a later rule - a phantom shortage that copies nothing.)
-Replicates(d) == \E k \in 1..Len(d.tasks) : Len(d.tasks[k].nodes) > 0
-Quiet(hs) == \A n \in hs : LET d == Decide27(n, hs, {}, {}) IN ~Replicates(d) /\ d.del = "none"
-NoTasks(hs) == \A n \in hs : ~Replicates(Decide27(n, hs, {}, {}))
-f\* a check "replicates" when it hands the replicator a task with at least one candidate node. (With overlapping
-\* rules the code as found keeps calling the replicator with an EMPTY candidate list: a holder remembered from
-\* an earlier rule does not lower the shortage of a later rule - a phantom shortage that copies nothing.)
-Replicates(d) == \E k \in 1..Len(d.tasks) : Len(d.tasks[k].nodes) > 0
-Quiet(hs) == \A n \in hs : LET d == Decide27(n, hs, {}, {}) IN ~Replicates(d) /\ d.del = "none"
-NoTasks(hs) == \A n \in hs : ~Replicates(Decide27(n, hs, {}, {}))
-o\* a check "replicates" when it hands the replicator a task with at least one candidate node. (With overlapping
-\* rules the code as found keeps calling the replicator with an EMPTY candidate list: a holder remembered from
-\* an earlier rule does not lower the shortage of a later rule - a phantom shortage that copies nothing.)
-Replicates(d) == \E k \in 1..Len(d.tasks) : Len(d.tasks[k].nodes) > 0
-Quiet(hs) == \A n \in hs : LET d == Decide27(n, hs, {}, {}) IN ~Replicates(d) /\ d.del = "none"
-NoTasks(hs) == \A n \in hs : ~Replicates(Decide27(n, hs, {}, {}))
-r\* a check "replicates" when it hands the replicator a task with at least one candidate node. (With overlapping
-\* rules the code as found keeps calling the replicator with an EMPTY candidate list: a holder remembered from
-\* an earlier rule does not lower the shortage of a later rule - a phantom shortage that copies nothing.)
-Replicates(d) == \E k \in 1..Len(d.tasks) : Len(d.tasks[k].nodes) > 0
-Quiet(hs) == \A n \in hs : LET d == Decide27(n, hs, {}, {}) IN ~Replicates(d) /\ d.del = "none"
-NoTasks(hs) == \A n \in hs : ~Replicates(Decide27(n, hs, {}, {}))
- \* a check "replicates" when it hands the replicator a task with at least one candidate node. (With overlapping
-\* rules the code as found keeps calling the replicator with an EMPTY candidate list: a holder remembered from
-\* an earlier rule does not lower the shortage of a later rule - a phantom shortage that copies nothing.)
-Replicates(d) == \E k \in 1..Len(d.tasks) : Len(d.tasks[k].nodes) > 0
-Quiet(hs) == \A n \in hs : LET d == Decide27(n, hs, {}, {}) IN ~Replicates(d) /\ d.del = "none"
-NoTasks(hs) == \A n \in hs : ~Replicates(Decide27(n, hs, {}, {}))
-a\* a check "replicates" when it hands the replicator a task with at least one candidate node. (With overlapping
-\* rules the code as found keeps calling the replicator with an EMPTY candidate list: a holder remembered from
-\* an earlier rule does not lower the shortage of a later rule - a phantom shortage that copies nothing.)
-Replicates(d) == \E k \in 1..Len(d.tasks) : Len(d.tasks[k].nodes) > 0
-Quiet(hs) == \A n \in hs : LET d == Decide27(n, hs, {}, {}) IN ~Replicates(d) /\ d.del = "none"
-NoTasks(hs) == \A n \in hs : ~Replicates(Decide27(n, hs, {}, {}))
- \* a check "replicates" when it hands the replicator a task with at least one candidate node. (With overlapping
-\* rules the code as found keeps calling the replicator with an EMPTY candidate list: a holder remembered from
-\* an earlier rule does not lower the shortage of a later rule - a phantom shortage that copies nothing.)
-Replicates(d) == \E k \in 1..Len(d.tasks) : Len(d.tasks[k].nodes) > 0
-Quiet(hs) == \A n \in hs : LET d == Decide27(n, hs, {}, {}) IN ~Replicates(d) /\ d.del = "none"
-NoTasks(hs) == \A n \in hs : ~Replicates(Decide27(n, hs, {}, {}))
-h\* a check "replicates" when it hands the replicator a task with at least one candidate node. (With overlapping
-\* rules the code as found keeps calling the replicator with an EMPTY candidate list: a holder remembered from
-\* an earlier rule does not lower the shortage of a later rule - a phantom shortage that copies nothing.)
-Replicates(d) == \E k \in 1..Len(d.tasks) : Len(d.tasks[k].nodes) > 0
-Quiet(hs) == \A n \in hs : LET d == Decide27(n, hs, {}, {}) IN ~Replicates(d) /\ d.del = "none"
-NoTasks(hs) == \A n \in hs : ~Replicates(Decide27(n, hs, {}, {}))
-o\* a check "replicates" when it hands the replicator a task with at least one candidate node. (With overlapping
-\* rules the code as found keeps calling the replicator with an EMPTY candidate list: a holder remembered from
-\* an earlier rule does not lower the shortage of a later rule - a phantom shortage that copies nothing.)
-Replicates(d) == \E k \in 1..Len(d.tasks) : Len(d.tasks[k].nodes) > 0
-Quiet(hs) == \A n \in hs : LET d == Decide27(n, hs, {}, {}) IN ~Replicates(d) /\ d.del = "none"
-NoTasks(hs) == \A n \in hs : ~Replicates(Decide27(n, hs, {}, {}))
-l\* a check "replicates" when it hands the replicator a task with at least one candidate node. (With overlapping
-\* rules the code as found keeps calling the replicator with an EMPTY candidate list: a holder remembered from
-\* an earlier rule does not lower the shortage of a later rule - a phantom shortage that copies nothing.)
-Replicates(d) == \E k \in 1..Len(d.tasks) : Len(d.tasks[k].nodes) > 0
-Quiet(hs) == \A n \in hs : LET d == Decide27(n, hs, {}, {}) IN ~Replicates(d) /\ d.del = "none"
-NoTasks(hs) == \A n \in hs : ~Replicates(Decide27(n, hs, {}, {}))
-d\* a check "replicates" when it hands the replicator a task with at least one candidate node. (With overlapping
-\* rules the code as found keeps calling the replicator with an EMPTY candidate list: a holder remembered from
-\* an earlier rule does not lower the shortage of a later rule - a phantom shortage that copies nothing.)
-Replicates(d) == \E k \in 1..Len(d.tasks) : Len(d.tasks[k].nodes) > 0
-Quiet(hs) == \A n \in hs : LET d == Decide27(n, hs, {}, {}) IN ~Replicates(d) /\ d.del = "none"
-NoTasks(hs) == \A n \in hs : ~Replicates(Decide27(n, hs, {}, {}))
-e\* a check "replicates" when it hands the replicator a task with at least one candidate node. (With overlapping
-\* rules the code as found keeps calling the replicator with an EMPTY candidate list: a holder remembered from
-\* an earlier rule does not lower the shortage of a later rule - a phantom shortage that copies nothing.)
-Replicates(d) == \E k \in 1..Len(d.tasks) : Len(d.tasks[k].nodes) > 0
-Quiet(hs) == \A n \in hs : LET d == Decide27(n, hs, {}, {}) IN ~Replicates(d) /\ d.del = "none"
-NoTasks(hs) == \A n \in hs : ~Replicates(Decide27(n, hs, {}, {}))
-r\* a check "replicates" when it hands the replicator a task with at least one candidate node. (With overlapping
-\* rules the code as found keeps calling the replicator with an EMPTY candidate list: a holder remembered from
-\* an earlier rule does not lower the shortage of a later rule - a phantom shortage that copies nothing.)
-Replicates(d) == \E k \in 1..Len(d.tasks) : Len(d.tasks[k].nodes) > 0
-Quiet(hs) == \A n \in hs : LET d == Decide27(n, hs, {}, {}) IN ~Replicates(d) /\ d.del = "none"
-NoTasks(hs) == \A n \in hs : ~Replicates(Decide27(n, hs, {}, {}))
-,\* a check "replicates" when it hands the replicator a task with at least one candidate node. (With overlapping
-\* rules the code as found keeps calling the replicator with an EMPTY candidate list: a holder remembered from
-\* an earlier rule does not lower the shortage of a later rule - a phantom shortage that copies nothing.)
-Replicates(d) == \E k \in 1..Len(d.tasks) : Len(d.tasks[k].nodes) > 0
-Quiet(hs) == \A n \in hs : LET d == Decide27(n, hs, {}, {}) IN ~Replicates(d) /\ d.del = "none"
-NoTasks(hs) == \A n \in hs : ~Replicates(Decide27(n, hs, {}, {}))
- \* a check "replicates" when it hands the replicator a task with at least one candidate node. (With overlapping
-\* rules the code as found keeps calling the replicator with an EMPTY candidate list: a holder remembered from
-\* an earlier rule does not lower the shortage of a later rule - a phantom shortage that copies nothing.)
-Replicates(d) == \E k \in 1..Len(d.tasks) : Len(d.tasks[k].nodes) > 0
-Quiet(hs) == \A n \in hs : LET d == Decide27(n, hs, {}, {}) IN ~Replicates(d) /\ d.del = "none"
-NoTasks(hs) == \A n \in hs : ~Replicates(Decide27(n, hs, {}, {}))
-4\* a check "replicates" when it hands the replicator a task with at least one candidate node. (With overlapping
-\* rules the code as found keeps calling the replicator with an EMPTY candidate list: a holder remembered from
-\* an earlier rule does not lower the shortage of a later rule - a phantom shortage that copies nothing.)
-Replicates(d) == \E k \in 1..Len(d.tasks) : Len(d.tasks[k].nodes) > 0
-Quiet(hs) == \A n \in hs : LET d == Decide27(n, hs, {}, {}) IN ~Replicates(d) /\ d.del = "none"
-NoTasks(hs) == \A n \in hs : ~Replicates(Decide27(n, hs, {}, {}))
-0\* a check "replicates" when it hands the replicator a task with at least one candidate node. (With overlapping
-\* rules the code as found keeps calling the replicator with an EMPTY candidate list: a holder remembered from
-\* an earlier rule does not lower the shortage of a later rule - a phantom shortage that copies nothing.)
-Replicates(d) == \E k \in 1..Len(d.tasks) : Len(d.tasks[k].nodes) > 0
-Quiet(hs) == \A n \in hs : LET d == Decide27(n, hs, {}, {}) IN ~Replicates(d) /\ d.del = "none"
-NoTasks(hs) == \A n \in hs : ~Replicates(Decide27(n, hs, {}, {}))
-4\* a check "replicates" when it hands the replicator a task with at least one candidate node. (With overlapping
-\* rules the code as found keeps calling the replicator with an EMPTY candidate list: a holder remembered from
-\* an earlier rule does not lower the shortage of a later rule - a phantom shortage that copies nothing.)
-Replicates(d) == \E k \in 1..Len(d.tasks) : Len(d.tasks[k].nodes) > 0
-Quiet(hs) == \A n \in hs : LET d == Decide27(n, hs, {}, {}) IN ~Replicates(d) /\ d.del = "none"
-NoTasks(hs) == \A n \in hs : ~Replicates(Decide27(n, hs, {}, {}))
- \* a check "replicates" when it hands the replicator a task with at least one candidate node. (With overlapping
-\* rules the code as found keeps calling the replicator with an EMPTY candidate list: a holder remembered from
-\* an earlier rule does not lower the shortage of a later rule - a phantom shortage that copies nothing.)
-Replicates(d) == \E k \in 1..Len(d.tasks) : Len(d.tasks[k].nodes) > 0
-Quiet(hs) == \A n \in hs : LET d == Decide27(n, hs, {}, {}) IN ~Replicates(d) /\ d.del = "none"
-NoTasks(hs) == \A n \in hs : ~Replicates(Decide27(n, hs, {}, {}))
-+\* a check "replicates" when it hands the replicator a task with at least one candidate node. (With overlapping
-\* rules the code as found keeps calling the replicator with an EMPTY candidate list: a holder remembered from
-\* an earlier rule does not lower the shortage of a later rule - a phantom shortage that copies nothing.)
-Replicates(d) == \E k \in 1..Len(d.tasks) : Len(d.tasks[k].nodes) > 0
-Quiet(hs) == \A n \in hs : LET d == Decide27(n, hs, {}, {}) IN ~Replicates(d) /\ d.del = "none"
-NoTasks(hs) == \A n \in hs : ~Replicates(Decide27(n, hs, {}, {}))
- \* a check "replicates" when it hands the replicator a task with at least one candidate node. (With overlapping
-\* rules the code as found keeps calling the replicator with an EMPTY candidate list: a holder remembered from
-\* an earlier rule does not lower the shortage of a later rule - a phantom shortage that copies nothing.)
-Replicates(d) == \E k \in 1..Len(d.tasks) : Len(d.tasks[k].nodes) > 0
-Quiet(hs) == \A n \in hs : LET d == Decide27(n, hs, {}, {}) IN ~Replicates(d) /\ d.del = "none"
-NoTasks(hs) == \A n \in hs : ~Replicates(Decide27(n, hs, {}, {}))
-s\* a check "replicates" when it hands the replicator a task with at least one candidate node. (With overlapping
-\* rules the code as found keeps calling the replicator with an EMPTY candidate list: a holder remembered from
-\* an earlier rule does not lower the shortage of a later rule - a phantom shortage that copies nothing.)
-Replicates(d) == \E k \in 1..Len(d.tasks) : Len(d.tasks[k].nodes) > 0
-Quiet(hs) == \A n \in hs : LET d == Decide27(n, hs, {}, {}) IN ~Replicates(d) /\ d.del = "none"
-NoTasks(hs) == \A n \in hs : ~Replicates(Decide27(n, hs, {}, {}))
-u\* a check "replicates" when it hands the replicator a task with at least one candidate node. (With overlapping
-\* rules the code as found keeps calling the replicator with an EMPTY candidate list: a holder remembered from
-\* an earlier rule does not lower the shortage of a later rule - a phantom shortage that copies nothing.)
-Replicates(d) == \E k \in 1..Len(d.tasks) : Len(d.tasks[k].nodes) > 0
-Quiet(hs) == \A n \in hs : LET d == Decide27(n, hs, {}, {}) IN ~Replicates(d) /\ d.del = "none"
-NoTasks(hs) == \A n \in hs : ~Replicates(Decide27(n, hs, {}, {}))
-c\* a check "replicates" when it hands the replicator a task with at least one candidate node. (With overlapping
-\* rules the code as found keeps calling the replicator with an EMPTY candidate list: a holder remembered from
-\* an earlier rule does not lower the shortage of a later rule - a phantom shortage that copies nothing.)
-Replicates(d) == \E k \in 1..Len(d.tasks) : Len(d.tasks[k].nodes) > 0
-Quiet(hs) == \A n \in hs : LET d == Decide27(n, hs, {}, {}) IN ~Replicates(d) /\ d.del = "none"
-NoTasks(hs) == \A n \in hs : ~Replicates(Decide27(n, hs, {}, {}))
-c\* a check "replicates" when it hands the replicator a task with at least one candidate node. (With overlapping
-\* rules the code as found keeps calling the replicator with an EMPTY candidate list: a holder remembered from
-\* an earlier rule does not lower the shortage of a later rule - a phantom shortage that copies nothing.)
-Replicates(d) == \E k \in 1..Len(d.tasks) : Len(d.tasks[k].nodes) > 0
-Quiet(hs) == \A n \in hs : LET d == Decide27(n, hs, {}, {}) IN ~Replicates(d) /\ d.del = "none"
-NoTasks(hs) == \A n \in hs : ~Replicates(Decide27(n, hs, {}, {}))
-e\* a check "replicates" when it hands the replicator a task with at least one candidate node. (With overlapping
-\* rules the code as found keeps calling the replicator with an EMPTY candidate list: a holder remembered from
-\* an earlier rule does not lower the shortage of a later rule - a phantom shortage that copies nothing.)
-Replicates(d) == \E k \in 1..Len(d.tasks) : Len(d.tasks[k].nodes) > 0
-Quiet(hs) == \A n \in hs : LET d == Decide27(n, hs, {}, {}) IN ~Replicates(d) /\ d.del = "none"
-NoTasks(hs) == \A n \in hs : ~Replicates(Decide27(n, hs, {}, {}))
-s\* a check "replicates" when it hands the replicator a task with at least one candidate node. (With overlapping
-\* rules the code as found keeps calling the replicator with an EMPTY candidate list: a holder remembered from
-\* an earlier rule does not lower the shortage of a later rule - a phantom shortage that copies nothing.)
-Replicates(d) == \E k \in 1..Len(d.tasks) : Len(d.tasks[k].nodes) > 0
-Quiet(hs) == \A n \in hs : LET d == Decide27(n, hs, {}, {}) IN ~Replicates(d) /\ d.del = "none"
-NoTasks(hs) == \A n \in hs : ~Replicates(Decide27(n, hs, {}, {}))
-s\* a check "replicates" when it hands the replicator a task with at least one candidate node. (With overlapping
-\* rules the code as found keeps calling the replicator with an EMPTY candidate list: a holder remembered from
-\* an earlier rule does not lower the shortage of a later rule - a phantom shortage that copies nothing.)
-Replicates(d) == \E k \in 1..Len(d.tasks) : Len(d.tasks[k].nodes) > 0
-Quiet(hs) == \A n \in hs : LET d == Decide27(n, hs, {}, {}) IN ~Replicates(d) /\ d.del = "none"
-NoTasks(hs) == \A n \in hs : ~Replicates(Decide27(n, hs, {}, {}))
-f\* a check "replicates" when it hands the replicator a task with at least one candidate node. (With overlapping
-\* rules the code as found keeps calling the replicator with an EMPTY candidate list: a holder remembered from
-\* an earlier rule does not lower the shortage of a later rule - a phantom shortage that copies nothing.)
-Replicates(d) == \E k \in 1..Len(d.tasks) : Len(d.tasks[k].nodes) > 0
-Quiet(hs) == \A n \in hs : LET d == Decide27(n, hs, {}, {}) IN ~Replicates(d) /\ d.del = "none"
-NoTasks(hs) == \A n \in hs : ~Replicates(Decide27(n, hs, {}, {}))
-u\* a check "replicates" when it hands the replicator a task with at least one candidate node. (With overlapping
-\* rules the code as found keeps calling the replicator with an EMPTY candidate list: a holder remembered from
-\* an earlier rule does not lower the shortage of a later rule - a phantom shortage that copies nothing.)
-Replicates(d) == \E k \in 1..Len(d.tasks) : Len(d.tasks[k].nodes) > 0
-Quiet(hs) == \A n \in hs : LET d == Decide27(n, hs, {}, {}) IN ~Replicates(d) /\ d.del = "none"
-NoTasks(hs) == \A n \in hs : ~Replicates(Decide27(n, hs, {}, {}))
-l\* a check "replicates" when it hands the replicator a task with at least one candidate node. (With overlapping
-\* rules the code as found keeps calling the replicator with an EMPTY candidate list: a holder remembered from
-\* an earlier rule does not lower the shortage of a later rule - a phantom shortage that copies nothing.)
-Replicates(d) == \E k \in 1..Len(d.tasks) : Len(d.tasks[k].nodes) > 0
-Quiet(hs) == \A n \in hs : LET d == Decide27(n, hs, {}, {}) IN ~Replicates(d) /\ d.del = "none"
-NoTasks(hs) == \A n \in hs : ~Replicates(Decide27(n, hs, {}, {}))
- \* a check "replicates" when it hands the replicator a task with at least one candidate node. (With overlapping
-\* rules the code as found keeps calling the replicator with an EMPTY candidate list: a holder remembered from
-\* an earlier rule does not lower the shortage of a later rule - a phantom shortage that copies nothing.)
-Replicates(d) == \E k \in 1..Len(d.tasks) : Len(d.tasks[k].nodes) > 0
-Quiet(hs) == \A n \in hs : LET d == Decide27(n, hs, {}, {}) IN ~Replicates(d) /\ d.del = "none"
-NoTasks(hs) == \A n \in hs : ~Replicates(Decide27(n, hs, {}, {}))
-r\* a check "replicates" when it hands the replicator a task with at least one candidate node. (With overlapping
-\* rules the code as found keeps calling the replicator with an EMPTY candidate list: a holder remembered from
-\* an earlier rule does not lower the shortage of a later rule - a phantom shortage that copies nothing.)
-Replicates(d) == \E k \in 1..Len(d.tasks) : Len(d.tasks[k].nodes) > 0
-Quiet(hs) == \A n \in hs : LET d == Decide27(n, hs, {}, {}) IN ~Replicates(d) /\ d.del = "none"
-NoTasks(hs) == \A n \in hs : ~Replicates(Decide27(n, hs, {}, {}))
-e\* a check "replicates" when it hands the replicator a task with at least one candidate node. (With overlapping
-\* rules the code as found keeps calling the replicator with an EMPTY candidate list: a holder remembered from
-\* an earlier rule does not lower the shortage of a later rule - a phantom shortage that copies nothing.)
-Replicates(d) == \E k \in 1..Len(d.tasks) : Len(d.tasks[k].nodes) > 0
-Quiet(hs) == \A n \in hs : LET d == Decide27(n, hs, {}, {}) IN ~Replicates(d) /\ d.del = "none"
-NoTasks(hs) == \A n \in hs : ~Replicates(Decide27(n, hs, {}, {}))
-p\* a check "replicates" when it hands the replicator a task with at least one candidate node. (With overlapping
-\* rules the code as found keeps calling the replicator with an EMPTY candidate list: a holder remembered from
-\* an earlier rule does not lower the shortage of a later rule - a phantom shortage that copies nothing.)
-Replicates(d) == \E k \in 1..Len(d.tasks) : Len(d.tasks[k].nodes) > 0
-Quiet(hs) == \A n \in hs : LET d == Decide27(n, hs, {}, {}) IN ~Replicates(d) /\ d.del = "none"
-NoTasks(hs) == \A n \in hs : ~Replicates(Decide27(n, hs, {}, {}))
-l\* a check "replicates" when it hands the replicator a task with at least one candidate node. (With overlapping
-\* rules the code as found keeps calling the replicator with an EMPTY candidate list: a holder remembered from
-\* an earlier rule does not lower the shortage of a later rule - a phantom shortage that copies nothing.)
-Replicates(d) == \E k \in 1..Len(d.tasks) : Len(d.tasks[k].nodes) > 0
-Quiet(hs) == \A n \in hs : LET d == Decide27(n, hs, {}, {}) IN ~Replicates(d) /\ d.del = "none"
-NoTasks(hs) == \A n \in hs : ~Replicates(Decide27(n, hs, {}, {}))
-i\* a check "replicates" when it hands the replicator a task with at least one candidate node. (With overlapping
-\* rules the code as found keeps calling the replicator with an EMPTY candidate list: a holder remembered from
-\* an earlier rule does not lower the shortage of a later rule - a phantom shortage that copies nothing.)
-Replicates(d) == \E k \in 1..Len(d.tasks) : Len(d.tasks[k].nodes) > 0
-Quiet(hs) == \A n \in hs : LET d == Decide27(n, hs, {}, {}) IN ~Replicates(d) /\ d.del = "none"
-NoTasks(hs) == \A n \in hs : ~Replicates(Decide27(n, hs, {}, {}))
-c\* a check "replicates" when it hands the replicator a task with at least one candidate node. (With overlapping
-\* rules the code as found keeps calling the replicator with an EMPTY candidate list: a holder remembered from
-\* an earlier rule does not lower the shortage of a later rule - a phantom shortage that copies nothing.)
-Replicates(d) == \E k \in 1..Len(d.tasks) : Len(d.tasks[k].nodes) > 0
-Quiet(hs) == \A n \in hs : LET d == Decide27(n, hs, {}, {}) IN ~Replicates(d) /\ d.del = "none"
-NoTasks(hs) == \A n \in hs : ~Replicates(Decide27(n, hs, {}, {}))
-a\* a check "replicates" when it hands the replicator a task with at least one candidate node. (With overlapping
-\* rules the code as found keeps calling the replicator with an EMPTY candidate list: a holder remembered from
-\* an earlier rule does not lower the shortage of a later rule - a phantom shortage that copies nothing.)
-Replicates(d) == \E k \in 1..Len(d.tasks) : Len(d.tasks[k].nodes) > 0
-Quiet(hs) == \A n \in hs : LET d == Decide27(n, hs, {}, {}) IN ~Replicates(d) /\ d.del = "none"
-NoTasks(hs) == \A n \in hs : ~Replicates(Decide27(n, hs, {}, {}))
-t\* a check "replicates" when it hands the replicator a task with at least one candidate node. (With overlapping
-\* rules the code as found keeps calling the replicator with an EMPTY candidate list: a holder remembered from
-\* an earlier rule does not lower the shortage of a later rule - a phantom shortage that copies nothing.)
-Replicates(d) == \E k \in 1..Len(d.tasks) : Len(d.tasks[k].nodes) > 0
-Quiet(hs) == \A n \in hs : LET d == Decide27(n, hs, {}, {}) IN ~Replicates(d) /\ d.del = "none"
-NoTasks(hs) == \A n \in hs : ~Replicates(Decide27(n, hs, {}, {}))
-i\* a check "replicates" when it hands the replicator a task with at least one candidate node. (With overlapping
-\* rules the code as found keeps calling the replicator with an EMPTY candidate list: a holder remembered from
-\* an earlier rule does not lower the shortage of a later rule - a phantom shortage that copies nothing.)
-Replicates(d) == \E k \in 1..Len(d.tasks) : Len(d.tasks[k].nodes) > 0
-Quiet(hs) == \A n \in hs : LET d == Decide27(n, hs, {}, {}) IN ~Replicates(d) /\ d.del = "none"
-NoTasks(hs) == \A n \in hs : ~Replicates(Decide27(n, hs, {}, {}))
-o\* a check "replicates" when it hands the replicator a task with at least one candidate node. (With overlapping
-\* rules the code as found keeps calling the replicator with an EMPTY candidate list: a holder remembered from
-\* an earlier rule does not lower the shortage of a later rule - a phantom shortage that copies nothing.)
-Replicates(d) == \E k \in 1..Len(d.tasks) : Len(d.tasks[k].nodes) > 0
-Quiet(hs) == \A n \in hs : LET d == Decide27(n, hs, {}, {}) IN ~Replicates(d) /\ d.del = "none"
-NoTasks(hs) == \A n \in hs : ~Replicates(Decide27(n, hs, {}, {}))
-n\* a check "replicates" when it hands the replicator a task with at least one candidate node. (With overlapping
-\* rules the code as found keeps calling the replicator with an EMPTY candidate list: a holder remembered from
-\* an earlier rule does not lower the shortage of a later rule - a phantom shortage that copies nothing.)
-Replicates(d) == \E k \in 1..Len(d.tasks) : Len(d.tasks[k].nodes) > 0
-Quiet(hs) == \A n \in hs : LET d == Decide27(n, hs, {}, {}) IN ~Replicates(d) /\ d.del = "none"
-NoTasks(hs) == \A n \in hs : ~Replicates(Decide27(n, hs, {}, {}))
- \* a check "replicates" when it hands the replicator a task with at least one candidate node. (With overlapping
-\* rules the code as found keeps calling the replicator with an EMPTY candidate list: a holder remembered from
-\* an earlier rule does not lower the shortage of a later rule - a phantom shortage that copies nothing.)
-Replicates(d) == \E k \in 1..Len(d.tasks) : Len(d.tasks[k].nodes) > 0
-Quiet(hs) == \A n \in hs : LET d == Decide27(n, hs, {}, {}) IN ~Replicates(d) /\ d.del = "none"
-NoTasks(hs) == \A n \in hs : ~Replicates(Decide27(n, hs, {}, {}))
-f\* a check "replicates" when it hands the replicator a task with at least one candidate node. (With overlapping
-\* rules the code as found keeps calling the replicator with an EMPTY candidate list: a holder remembered from
-\* an earlier rule does not lower the shortage of a later rule - a phantom shortage that copies nothing.)
-Replicates(d) == \E k \in 1..Len(d.tasks) : Len(d.tasks[k].nodes) > 0
-Quiet(hs) == \A n \in hs : LET d == Decide27(n, hs, {}, {}) IN ~Replicates(d) /\ d.del = "none"
-NoTasks(hs) == \A n \in hs : ~Replicates(Decide27(n, hs, {}, {}))
-o\* a check "replicates" when it hands the replicator a task with at least one candidate node. (With overlapping
-\* rules the code as found keeps calling the replicator with an EMPTY candidate list: a holder remembered from
-\* an earlier rule does not lower the shortage of a later rule - a phantom shortage that copies nothing.)
-Replicates(d) == \E k \in 1..Len(d.tasks) : Len(d.tasks[k].nodes) > 0
-Quiet(hs) == \A n \in hs : LET d == Decide27(n, hs, {}, {}) IN ~Replicates(d) /\ d.del = "none"
-NoTasks(hs) == \A n \in hs : ~Replicates(Decide27(n, hs, {}, {}))
-r\* a check "replicates" when it hands the replicator a task with at least one candidate node. (With overlapping
-\* rules the code as found keeps calling the replicator with an EMPTY candidate list: a holder remembered from
-\* an earlier rule does not lower the shortage of a later rule - a phantom shortage that copies nothing.)
-Replicates(d) == \E k \in 1..Len(d.tasks) : Len(d.tasks[k].nodes) > 0
-Quiet(hs) == \A n \in hs : LET d == Decide27(n, hs, {}, {}) IN ~Replicates(d) /\ d.del = "none"
-NoTasks(hs) == \A n \in hs : ~Replicates(Decide27(n, hs, {}, {}))
- \* a check "replicates" when it hands the replicator a task with at least one candidate node. (With overlapping
-\* rules the code as found keeps calling the replicator with an EMPTY candidate list: a holder remembered from
-\* an earlier rule does not lower the shortage of a later rule - a phantom shortage that copies nothing.)
-Replicates(d) == \E k \in 1..Len(d.tasks) : Len(d.tasks[k].nodes) > 0
-Quiet(hs) == \A n \in hs : LET d == Decide27(n, hs, {}, {}) IN ~Replicates(d) /\ d.del = "none"
-NoTasks(hs) == \A n \in hs : ~Replicates(Decide27(n, hs, {}, {}))
-a\* a check "replicates" when it hands the replicator a task with at least one candidate node. (With overlapping
-\* rules the code as found keeps calling the replicator with an EMPTY candidate list: a holder remembered from
-\* an earlier rule does not lower the shortage of a later rule - a phantom shortage that copies nothing.)
-Replicates(d) == \E k \in 1..Len(d.tasks) : Len(d.tasks[k].nodes) > 0
-Quiet(hs) == \A n \in hs : LET d == Decide27(n, hs, {}, {}) IN ~Replicates(d) /\ d.del = "none"
-NoTasks(hs) == \A n \in hs : ~Replicates(Decide27(n, hs, {}, {}))
- \* a check "replicates" when it hands the replicator a task with at least one candidate node. (With overlapping
-\* rules the code as found keeps calling the replicator with an EMPTY candidate list: a holder remembered from
-\* an earlier rule does not lower the shortage of a later rule - a phantom shortage that copies nothing.)
-Replicates(d) == \E k \in 1..Len(d.tasks) : Len(d.tasks[k].nodes) > 0
-Quiet(hs) == \A n \in hs : LET d == Decide27(n, hs, {}, {}) IN ~Replicates(d) /\ d.del = "none"
-NoTasks(hs) == \A n \in hs : ~Replicates(Decide27(n, hs, {}, {}))
-r\* a check "replicates" when it hands the replicator a task with at least one candidate node. (With overlapping
-\* rules the code as found keeps calling the replicator with an EMPTY candidate list: a holder remembered from
-\* an earlier rule does not lower the shortage of a later rule - a phantom shortage that copies nothing.)
-Replicates(d) == \E k \in 1..Len(d.tasks) : Len(d.tasks[k].nodes) > 0
-Quiet(hs) == \A n \in hs : LET d == Decide27(n, hs, {}, {}) IN ~Replicates(d) /\ d.del = "none"
-NoTasks(hs) == \A n \in hs : ~Replicates(Decide27(n, hs, {}, {}))
-e\* a check "replicates" when it hands the replicator a task with at least one candidate node. (With overlapping
-\* rules the code as found keeps calling the replicator with an EMPTY candidate list: a holder remembered from
-\* an earlier rule does not lower the shortage of a later rule - a phantom shortage that copies nothing.)
-Replicates(d) == \E k \in 1..Len(d.tasks) : Len(d.tasks[k].nodes) > 0
-Quiet(hs) == \A n \in hs : LET d == Decide27(n, hs, {}, {}) IN ~Replicates(d) /\ d.del = "none"
-NoTasks(hs) == \A n \in hs : ~Replicates(Decide27(n, hs, {}, {}))
-a\* a check "replicates" when it hands the replicator a task with at least one candidate node. (With overlapping
-\* rules the code as found keeps calling the replicator with an EMPTY candidate list: a holder remembered from
-\* an earlier rule does not lower the shortage of a later rule - a phantom shortage that copies nothing.)
-Replicates(d) == \E k \in 1..Len(d.tasks) : Len(d.tasks[k].nodes) > 0
-Quiet(hs) == \A n \in hs : LET d == Decide27(n, hs, {}, {}) IN ~Replicates(d) /\ d.del = "none"
-NoTasks(hs) == \A n \in hs : ~Replicates(Decide27(n, hs, {}, {}))
-c\* a check "replicates" when it hands the replicator a task with at least one candidate node. (With overlapping
-\* rules the code as found keeps calling the replicator with an EMPTY candidate list: a holder remembered from
-\* an earlier rule does not lower the shortage of a later rule - a phantom shortage that copies nothing.)
-Replicates(d) == \E k \in 1..Len(d.tasks) : Len(d.tasks[k].nodes) > 0
-Quiet(hs) == \A n \in hs : LET d == Decide27(n, hs, {}, {}) IN ~Replicates(d) /\ d.del = "none"
-NoTasks(hs) == \A n \in hs : ~Replicates(Decide27(n, hs, {}, {}))
-h\* a check "replicates" when it hands the replicator a task with at least one candidate node. (With overlapping
-\* rules the code as found keeps calling the replicator with an EMPTY candidate list: a holder remembered from
-\* an earlier rule does not lower the shortage of a later rule - a phantom shortage that copies nothing.)
-Replicates(d) == \E k \in 1..Len(d.tasks) : Len(d.tasks[k].nodes) > 0
-Quiet(hs) == \A n \in hs : LET d == Decide27(n, hs, {}, {}) IN ~Replicates(d) /\ d.del = "none"
-NoTasks(hs) == \A n \in hs : ~Replicates(Decide27(n, hs, {}, {}))
-a\* a check "replicates" when it hands the replicator a task with at least one candidate node. (With overlapping
-\* rules the code as found keeps calling the replicator with an EMPTY candidate list: a holder remembered from
-\* an earlier rule does not lower the shortage of a later rule - a phantom shortage that copies nothing.)
-Replicates(d) == \E k \in 1..Len(d.tasks) : Len(d.tasks[k].nodes) > 0
-Quiet(hs) == \A n \in hs : LET d == Decide27(n, hs, {}, {}) IN ~Replicates(d) /\ d.del = "none"
-NoTasks(hs) == \A n \in hs : ~Replicates(Decide27(n, hs, {}, {}))
-b\* a check "replicates" when it hands the replicator a task with at least one candidate node. (With overlapping
-\* rules the code as found keeps calling the replicator with an EMPTY candidate list: a holder remembered from
-\* an earlier rule does not lower the shortage of a later rule - a phantom shortage that copies nothing.)
-Replicates(d) == \E k \in 1..Len(d.tasks) : Len(d.tasks[k].nodes) > 0
-Quiet(hs) == \A n \in hs : LET d == Decide27(n, hs, {}, {}) IN ~Replicates(d) /\ d.del = "none"
-NoTasks(hs) == \A n \in hs : ~Replicates(Decide27(n, hs, {}, {}))
-l\* a check "replicates" when it hands the replicator a task with at least one candidate node. (With overlapping
-\* rules the code as found keeps calling the replicator with an EMPTY candidate list: a holder remembered from
-\* an earlier rule does not lower the shortage of a later rule - a phantom shortage that copies nothing.)
-Replicates(d) == \E k \in 1..Len(d.tasks) : Len(d.tasks[k].nodes) > 0
-Quiet(hs) == \A n \in hs : LET d == Decide27(n, hs, {}, {}) IN ~Replicates(d) /\ d.del = "none"
-NoTasks(hs) == \A n \in hs : ~Replicates(Decide27(n, hs, {}, {}))
-e\* a check "replicates" when it hands the replicator a task with at least one candidate node. (With overlapping
-\* rules the code as found keeps calling the replicator with an EMPTY candidate list: a holder remembered from
-\* an earlier rule does not lower the shortage of a later rule - a phantom shortage that copies nothing.)
-Replicates(d) == \E k \in 1..Len(d.tasks) : Len(d.tasks[k].nodes) > 0
-Quiet(hs) == \A n \in hs : LET d == Decide27(n, hs, {}, {}) IN ~Replicates(d) /\ d.del = "none"
-NoTasks(hs) == \A n \in hs : ~Replicates(Decide27(n, hs, {}, {}))
- \* a check "replicates" when it hands the replicator a task with at least one candidate node. (With overlapping
-\* rules the code as found keeps calling the replicator with an EMPTY candidate list: a holder remembered from
-\* an earlier rule does not lower the shortage of a later rule - a phantom shortage that copies nothing.)
-Replicates(d) == \E k \in 1..Len(d.tasks) : Len(d.tasks[k].nodes) > 0
-Quiet(hs) == \A n \in hs : LET d == Decide27(n, hs, {}, {}) IN ~Replicates(d) /\ d.del = "none"
-NoTasks(hs) == \A n \in hs : ~Replicates(Decide27(n, hs, {}, {}))
-n\* a check "replicates" when it hands the replicator a task with at least one candidate node. (With overlapping
-\* rules the code as found keeps calling the replicator with an EMPTY candidate list: a holder remembered from
-\* an earlier rule does not lower the shortage of a later rule - a phantom shortage that copies nothing.)
-Replicates(d) == \E k \in 1..Len(d.tasks) : Len(d.tasks[k].nodes) > 0
-Quiet(hs) == \A n \in hs : LET d == Decide27(n, hs, {}, {}) IN ~Replicates(d) /\ d.del = "none"
-NoTasks(hs) == \A n \in hs : ~Replicates(Decide27(n, hs, {}, {}))
-o\* a check "replicates" when it hands the replicator a task with at least one candidate node. (With overlapping
-\* rules the code as found keeps calling the replicator with an EMPTY candidate list: a holder remembered from
-\* an earlier rule does not lower the shortage of a later rule - a phantom shortage that copies nothing.)
-Replicates(d) == \E k \in 1..Len(d.tasks) : Len(d.tasks[k].nodes) > 0
-Quiet(hs) == \A n \in hs : LET d == Decide27(n, hs, {}, {}) IN ~Replicates(d) /\ d.del = "none"
-NoTasks(hs) == \A n \in hs : ~Replicates(Decide27(n, hs, {}, {}))
-n\* a check "replicates" when it hands the replicator a task with at least one candidate node. (With overlapping
-\* rules the code as found keeps calling the replicator with an EMPTY candidate list: a holder remembered from
-\* an earlier rule does not lower the shortage of a later rule - a phantom shortage that copies nothing.)
-Replicates(d) == \E k \in 1..Len(d.tasks) : Len(d.tasks[k].nodes) > 0
-Quiet(hs) == \A n \in hs : LET d == Decide27(n, hs, {}, {}) IN ~Replicates(d) /\ d.del = "none"
-NoTasks(hs) == \A n \in hs : ~Replicates(Decide27(n, hs, {}, {}))
--\* a check "replicates" when it hands the replicator a task with at least one candidate node. (With overlapping
-\* rules the code as found keeps calling the replicator with an EMPTY candidate list: a holder remembered from
-\* an earlier rule does not lower the shortage of a later rule - a phantom shortage that copies nothing.)
-Replicates(d) == \E k \in 1..Len(d.tasks) : Len(d.tasks[k].nodes) > 0
-Quiet(hs) == \A n \in hs : LET d == Decide27(n, hs, {}, {}) IN ~Replicates(d) /\ d.del = "none"
-NoTasks(hs) == \A n \in hs : ~Replicates(Decide27(n, hs, {}, {}))
-h\* a check "replicates" when it hands the replicator a task with at least one candidate node. (With overlapping
-\* rules the code as found keeps calling the replicator with an EMPTY candidate list: a holder remembered from
-\* an earlier rule does not lower the shortage of a later rule - a phantom shortage that copies nothing.)
-Replicates(d) == \E k \in 1..Len(d.tasks) : Len(d.tasks[k].nodes) > 0
-Quiet(hs) == \A n \in hs : LET d == Decide27(n, hs, {}, {}) IN ~Replicates(d) /\ d.del = "none"
-NoTasks(hs) == \A n \in hs : ~Replicates(Decide27(n, hs, {}, {}))
-o\* a check "replicates" when it hands the replicator a task with at least one candidate node. (With overlapping
-\* rules the code as found keeps calling the replicator with an EMPTY candidate list: a holder remembered from
-\* an earlier rule does not lower the shortage of a later rule - a phantom shortage that copies nothing.)
-Replicates(d) == \E k \in 1..Len(d.tasks) : Len(d.tasks[k].nodes) > 0
-Quiet(hs) == \A n \in hs : LET d == Decide27(n, hs, {}, {}) IN ~Replicates(d) /\ d.del = "none"
-NoTasks(hs) == \A n \in hs : ~Replicates(Decide27(n, hs, {}, {}))
-l\* a check "replicates" when it hands the replicator a task with at least one candidate node. (With overlapping
-\* rules the code as found keeps calling the replicator with an EMPTY candidate list: a holder remembered from
-\* an earlier rule does not lower the shortage of a later rule - a phantom shortage that copies nothing.)
-Replicates(d) == \E k \in 1..Len(d.tasks) : Len(d.tasks[k].nodes) > 0
-Quiet(hs) == \A n \in hs : LET d == Decide27(n, hs, {}, {}) IN ~Replicates(d) /\ d.del = "none"
-NoTasks(hs) == \A n \in hs : ~Replicates(Decide27(n, hs, {}, {}))
-d\* a check "replicates" when it hands the replicator a task with at least one candidate node. (With overlapping
-\* rules the code as found keeps calling the replicator with an EMPTY candidate list: a holder remembered from
-\* an earlier rule does not lower the shortage of a later rule - a phantom shortage that copies nothing.)
-Replicates(d) == \E k \in 1..Len(d.tasks) : Len(d.tasks[k].nodes) > 0
-Quiet(hs) == \A n \in hs : LET d == Decide27(n, hs, {}, {}) IN ~Replicates(d) /\ d.del = "none"
-NoTasks(hs) == \A n \in hs : ~Replicates(Decide27(n, hs, {}, {}))
-e\* a check "replicates" when it hands the replicator a task with at least one candidate node. (With overlapping
-\* rules the code as found keeps calling the replicator with an EMPTY candidate list: a holder remembered from
-\* an earlier rule does not lower the shortage of a later rule - a phantom shortage that copies nothing.)
-Replicates(d) == \E k \in 1..Len(d.tasks) : Len(d.tasks[k].nodes) > 0
-Quiet(hs) == \A n \in hs : LET d == Decide27(n, hs, {}, {}) IN ~Replicates(d) /\ d.del = "none"
-NoTasks(hs) == \A n \in hs : ~Replicates(Decide27(n, hs, {}, {}))
-r\* a check "replicates" when it hands the replicator a task with at least one candidate node. (With overlapping
-\* rules the code as found keeps calling the replicator with an EMPTY candidate list: a holder remembered from
-\* an earlier rule does not lower the shortage of a later rule - a phantom shortage that copies nothing.)
-Replicates(d) == \E k \in 1..Len(d.tasks) : Len(d.tasks[k].nodes) > 0
-Quiet(hs) == \A n \in hs : LET d == Decide27(n, hs, {}, {}) IN ~Replicates(d) /\ d.del = "none"
-NoTasks(hs) == \A n \in hs : ~Replicates(Decide27(n, hs, {}, {}))
-,\* a check "replicates" when it hands the replicator a task with at least one candidate node. (With overlapping
-\* rules the code as found keeps calling the replicator with an EMPTY candidate list: a holder remembered from
-\* an earlier rule does not lower the shortage of a later rule - a phantom shortage that copies nothing.)
-Replicates(d) == \E k \in 1..Len(d.tasks) : Len(d.tasks[k].nodes) > 0
-Quiet(hs) == \A n \in hs : LET d == Decide27(n, hs, {}, {}) IN ~Replicates(d) /\ d.del = "none"
-NoTasks(hs) == \A n \in hs : ~Replicates(Decide27(n, hs, {}, {}))
- \* a check "replicates" when it hands the replicator a task with at least one candidate node. (With overlapping
-\* rules the code as found keeps calling the replicator with an EMPTY candidate list: a holder remembered from
-\* an earlier rule does not lower the shortage of a later rule - a phantom shortage that copies nothing.)
-Replicates(d) == \E k \in 1..Len(d.tasks) : Len(d.tasks[k].nodes) > 0
-Quiet(hs) == \A n \in hs : LET d == Decide27(n, hs, {}, {}) IN ~Replicates(d) /\ d.del = "none"
-NoTasks(hs) == \A n \in hs : ~Replicates(Decide27(n, hs, {}, {}))
-u\* a check "replicates" when it hands the replicator a task with at least one candidate node. (With overlapping
-\* rules the code as found keeps calling the replicator with an EMPTY candidate list: a holder remembered from
-\* an earlier rule does not lower the shortage of a later rule - a phantom shortage that copies nothing.)
-Replicates(d) == \E k \in 1..Len(d.tasks) : Len(d.tasks[k].nodes) > 0
-Quiet(hs) == \A n \in hs : LET d == Decide27(n, hs, {}, {}) IN ~Replicates(d) /\ d.del = "none"
-NoTasks(hs) == \A n \in hs : ~Replicates(Decide27(n, hs, {}, {}))
-n\* a check "replicates" when it hands the replicator a task with at least one candidate node. (With overlapping
-\* rules the code as found keeps calling the replicator with an EMPTY candidate list: a holder remembered from
-\* an earlier rule does not lower the shortage of a later rule - a phantom shortage that copies nothing.)
-Replicates(d) == \E k \in 1..Len(d.tasks) : Len(d.tasks[k].nodes) > 0
-Quiet(hs) == \A n \in hs : LET d == Decide27(n, hs, {}, {}) IN ~Replicates(d) /\ d.del = "none"
-NoTasks(hs) == \A n \in hs : ~Replicates(Decide27(n, hs, {}, {}))
-r\* a check "replicates" when it hands the replicator a task with at least one candidate node. (With overlapping
-\* rules the code as found keeps calling the replicator with an EMPTY candidate list: a holder remembered from
-\* an earlier rule does not lower the shortage of a later rule - a phantom shortage that copies nothing.)
-Replicates(d) == \E k \in 1..Len(d.tasks) : Len(d.tasks[k].nodes) > 0
-Quiet(hs) == \A n \in hs : LET d == Decide27(n, hs, {}, {}) IN ~Replicates(d) /\ d.del = "none"
-NoTasks(hs) == \A n \in hs : ~Replicates(Decide27(n, hs, {}, {}))
-e\* a check "replicates" when it hands the replicator a task with at least one candidate node. (With overlapping
-\* rules the code as found keeps calling the replicator with an EMPTY candidate list: a holder remembered from
-\* an earlier rule does not lower the shortage of a later rule - a phantom shortage that copies nothing.)
-Replicates(d) == \E k \in 1..Len(d.tasks) : Len(d.tasks[k].nodes) > 0
-Quiet(hs) == \A n \in hs : LET d == Decide27(n, hs, {}, {}) IN ~Replicates(d) /\ d.del = "none"
-NoTasks(hs) == \A n \in hs : ~Replicates(Decide27(n, hs, {}, {}))
-a\* a check "replicates" when it hands the replicator a task with at least one candidate node. (With overlapping
-\* rules the code as found keeps calling the replicator with an EMPTY candidate list: a holder remembered from
-\* an earlier rule does not lower the shortage of a later rule - a phantom shortage that copies nothing.)
-Replicates(d) == \E k \in 1..Len(d.tasks) : Len(d.tasks[k].nodes) > 0
-Quiet(hs) == \A n \in hs : LET d == Decide27(n, hs, {}, {}) IN ~Replicates(d) /\ d.del = "none"
-NoTasks(hs) == \A n \in hs : ~Replicates(Decide27(n, hs, {}, {}))
-c\* a check "replicates" when it hands the replicator a task with at least one candidate node. (With overlapping
-\* rules the code as found keeps calling the replicator with an EMPTY candidate list: a holder remembered from
-\* an earlier rule does not lower the shortage of a later rule - a phantom shortage that copies nothing.)
-Replicates(d) == \E k \in 1..Len(d.tasks) : Len(d.tasks[k].nodes) > 0
-Quiet(hs) == \A n \in hs : LET d == Decide27(n, hs, {}, {}) IN ~Replicates(d) /\ d.del = "none"
-NoTasks(hs) == \A n \in hs : ~Replicates(Decide27(n, hs, {}, {}))
-h\* a check "replicates" when it hands the replicator a task with at least one candidate node. (With overlapping
-\* rules the code as found keeps calling the replicator with an EMPTY candidate list: a holder remembered from
-\* an earlier rule does not lower the shortage of a later rule - a phantom shortage that copies nothing.)
-Replicates(d) == \E k \in 1..Len(d.tasks) : Len(d.tasks[k].nodes) > 0
-Quiet(hs) == \A n \in hs : LET d == Decide27(n, hs, {}, {}) IN ~Replicates(d) /\ d.del = "none"
-NoTasks(hs) == \A n \in hs : ~Replicates(Decide27(n, hs, {}, {}))
-a\* a check "replicates" when it hands the replicator a task with at least one candidate node. (With overlapping
-\* rules the code as found keeps calling the replicator with an EMPTY candidate list: a holder remembered from
-\* an earlier rule does not lower the shortage of a later rule - a phantom shortage that copies nothing.)
-Replicates(d) == \E k \in 1..Len(d.tasks) : Len(d.tasks[k].nodes) > 0
-Quiet(hs) == \A n \in hs : LET d == Decide27(n, hs, {}, {}) IN ~Replicates(d) /\ d.del = "none"
-NoTasks(hs) == \A n \in hs : ~Replicates(Decide27(n, hs, {}, {}))
-b\* a check "replicates" when it hands the replicator a task with at least one candidate node. (With overlapping
-\* rules the code as found keeps calling the replicator with an EMPTY candidate list: a holder remembered from
-\* an earlier rule does not lower the shortage of a later rule - a phantom shortage that copies nothing.)
-Replicates(d) == \E k \in 1..Len(d.tasks) : Len(d.tasks[k].nodes) > 0
-Quiet(hs) == \A n \in hs : LET d == Decide27(n, hs, {}, {}) IN ~Replicates(d) /\ d.del = "none"
-NoTasks(hs) == \A n \in hs : ~Replicates(Decide27(n, hs, {}, {}))
-l\* a check "replicates" when it hands the replicator a task with at least one candidate node. (With overlapping
-\* rules the code as found keeps calling the replicator with an EMPTY candidate list: a holder remembered from
-\* an earlier rule does not lower the shortage of a later rule - a phantom shortage that copies nothing.)
-Replicates(d) == \E k \in 1..Len(d.tasks) : Len(d.tasks[k].nodes) > 0
-Quiet(hs) == \A n \in hs : LET d == Decide27(n, hs, {}, {}) IN ~Replicates(d) /\ d.del = "none"
-NoTasks(hs) == \A n \in hs : ~Replicates(Decide27(n, hs, {}, {}))
-e\* a check "replicates" when it hands the replicator a task with at least one candidate node. (With overlapping
-\* rules the code as found keeps calling the replicator with an EMPTY candidate list: a holder remembered from
-\* an earlier rule does not lower the shortage of a later rule - a phantom shortage that copies nothing.)
-Replicates(d) == \E k \in 1..Len(d.tasks) : Len(d.tasks[k].nodes) > 0
-Quiet(hs) == \A n \in hs : LET d == Decide27(n, hs, {}, {}) IN ~Replicates(d) /\ d.del = "none"
-NoTasks(hs) == \A n \in hs : ~Replicates(Decide27(n, hs, {}, {}))
- \* a check "replicates" when it hands the replicator a task with at least one candidate node. (With overlapping
-\* rules the code as found keeps calling the replicator with an EMPTY candidate list: a holder remembered from
-\* an earlier rule does not lower the shortage of a later rule - a phantom shortage that copies nothing.)
-Replicates(d) == \E k \in 1..Len(d.tasks) : Len(d.tasks[k].nodes) > 0
-Quiet(hs) == \A n \in hs : LET d == Decide27(n, hs, {}, {}) IN ~Replicates(d) /\ d.del = "none"
-NoTasks(hs) == \A n \in hs : ~Replicates(Decide27(n, hs, {}, {}))
-f\* a check "replicates" when it hands the replicator a task with at least one candidate node. (With overlapping
-\* rules the code as found keeps calling the replicator with an EMPTY candidate list: a holder remembered from
-\* an earlier rule does not lower the shortage of a later rule - a phantom shortage that copies nothing.)
-Replicates(d) == \E k \in 1..Len(d.tasks) : Len(d.tasks[k].nodes) > 0
-Quiet(hs) == \A n \in hs : LET d == Decide27(n, hs, {}, {}) IN ~Replicates(d) /\ d.del = "none"
-NoTasks(hs) == \A n \in hs : ~Replicates(Decide27(n, hs, {}, {}))
-o\* a check "replicates" when it hands the replicator a task with at least one candidate node. (With overlapping
-\* rules the code as found keeps calling the replicator with an EMPTY candidate list: a holder remembered from
-\* an earlier rule does not lower the shortage of a later rule - a phantom shortage that copies nothing.)
-Replicates(d) == \E k \in 1..Len(d.tasks) : Len(d.tasks[k].nodes) > 0
-Quiet(hs) == \A n \in hs : LET d == Decide27(n, hs, {}, {}) IN ~Replicates(d) /\ d.del = "none"
-NoTasks(hs) == \A n \in hs : ~Replicates(Decide27(n, hs, {}, {}))
-r\* a check "replicates" when it hands the replicator a task with at least one candidate node. (With overlapping
-\* rules the code as found keeps calling the replicator with an EMPTY candidate list: a holder remembered from
-\* an earlier rule does not lower the shortage of a later rule - a phantom shortage that copies nothing.)
-Replicates(d) == \E k \in 1..Len(d.tasks) : Len(d.tasks[k].nodes) > 0
-Quiet(hs) == \A n \in hs : LET d == Decide27(n, hs, {}, {}) IN ~Replicates(d) /\ d.del = "none"
-NoTasks(hs) == \A n \in hs : ~Replicates(Decide27(n, hs, {}, {}))
- \* a check "replicates" when it hands the replicator a task with at least one candidate node. (With overlapping
-\* rules the code as found keeps calling the replicator with an EMPTY candidate list: a holder remembered from
-\* an earlier rule does not lower the shortage of a later rule - a phantom shortage that copies nothing.)
-Replicates(d) == \E k \in 1..Len(d.tasks) : Len(d.tasks[k].nodes) > 0
-Quiet(hs) == \A n \in hs : LET d == Decide27(n, hs, {}, {}) IN ~Replicates(d) /\ d.del = "none"
-NoTasks(hs) == \A n \in hs : ~Replicates(Decide27(n, hs, {}, {}))
-a\* a check "replicates" when it hands the replicator a task with at least one candidate node. (With overlapping
-\* rules the code as found keeps calling the replicator with an EMPTY candidate list: a holder remembered from
-\* an earlier rule does not lower the shortage of a later rule - a phantom shortage that copies nothing.)
-Replicates(d) == \E k \in 1..Len(d.tasks) : Len(d.tasks[k].nodes) > 0
-Quiet(hs) == \A n \in hs : LET d == Decide27(n, hs, {}, {}) IN ~Replicates(d) /\ d.del = "none"
-NoTasks(hs) == \A n \in hs : ~Replicates(Decide27(n, hs, {}, {}))
- \* a check "replicates" when it hands the replicator a task with at least one candidate node. (With overlapping
-\* rules the code as found keeps calling the replicator with an EMPTY candidate list: a holder remembered from
-\* an earlier rule does not lower the shortage of a later rule - a phantom shortage that copies nothing.)
-Replicates(d) == \E k \in 1..Len(d.tasks) : Len(d.tasks[k].nodes) > 0
-Quiet(hs) == \A n \in hs : LET d == Decide27(n, hs, {}, {}) IN ~Replicates(d) /\ d.del = "none"
-NoTasks(hs) == \A n \in hs : ~Replicates(Decide27(n, hs, {}, {}))
-n\* a check "replicates" when it hands the replicator a task with at least one candidate node. (With overlapping
-\* rules the code as found keeps calling the replicator with an EMPTY candidate list: a holder remembered from
-\* an earlier rule does not lower the shortage of a later rule - a phantom shortage that copies nothing.)
-Replicates(d) == \E k \in 1..Len(d.tasks) : Len(d.tasks[k].nodes) > 0
-Quiet(hs) == \A n \in hs : LET d == Decide27(n, hs, {}, {}) IN ~Replicates(d) /\ d.del = "none"
-NoTasks(hs) == \A n \in hs : ~Replicates(Decide27(n, hs, {}, {}))
-o\* a check "replicates" when it hands the replicator a task with at least one candidate node. (With overlapping
-\* rules the code as found keeps calling the replicator with an EMPTY candidate list: a holder remembered from
-\* an earlier rule does not lower the shortage of a later rule - a phantom shortage that copies nothing.)
-Replicates(d) == \E k \in 1..Len(d.tasks) : Len(d.tasks[k].nodes) > 0
-Quiet(hs) == \A n \in hs : LET d == Decide27(n, hs, {}, {}) IN ~Replicates(d) /\ d.del = "none"
-NoTasks(hs) == \A n \in hs : ~Replicates(Decide27(n, hs, {}, {}))
-d\* a check "replicates" when it hands the replicator a task with at least one candidate node. (With overlapping
-\* rules the code as found keeps calling the replicator with an EMPTY candidate list: a holder remembered from
-\* an earlier rule does not lower the shortage of a later rule - a phantom shortage that copies nothing.)
-Replicates(d) == \E k \in 1..Len(d.tasks) : Len(d.tasks[k].nodes) > 0
-Quiet(hs) == \A n \in hs : LET d == Decide27(n, hs, {}, {}) IN ~Replicates(d) /\ d.del = "none"
-NoTasks(hs) == \A n \in hs : ~Replicates(Decide27(n, hs, {}, {}))
-e\* a check "replicates" when it hands the replicator a task with at least one candidate node. (With overlapping
-\* rules the code as found keeps calling the replicator with an EMPTY candidate list: a holder remembered from
-\* an earlier rule does not lower the shortage of a later rule - a phantom shortage that copies nothing.)
-Replicates(d) == \E k \in 1..Len(d.tasks) : Len(d.tasks[k].nodes) > 0
-Quiet(hs) == \A n \in hs : LET d == Decide27(n, hs, {}, {}) IN ~Replicates(d) /\ d.del = "none"
-NoTasks(hs) == \A n \in hs : ~Replicates(Decide27(n, hs, {}, {}))
- \* a check "replicates" when it hands the replicator a task with at least one candidate node. (With overlapping
-\* rules the code as found keeps calling the replicator with an EMPTY candidate list: a holder remembered from
-\* an earlier rule does not lower the shortage of a later rule - a phantom shortage that copies nothing.)
-Replicates(d) == \E k \in 1..Len(d.tasks) : Len(d.tasks[k].nodes) > 0
-Quiet(hs) == \A n \in hs : LET d == Decide27(n, hs, {}, {}) IN ~Replicates(d) /\ d.del = "none"
-NoTasks(hs) == \A n \in hs : ~Replicates(Decide27(n, hs, {}, {}))
-i\* a check "replicates" when it hands the replicator a task with at least one candidate node. (With overlapping
-\* rules the code as found keeps calling the replicator with an EMPTY candidate list: a holder remembered from
-\* an earlier rule does not lower the shortage of a later rule - a phantom shortage that copies nothing.)
-Replicates(d) == \E k \in 1..Len(d.tasks) : Len(d.tasks[k].nodes) > 0
-Quiet(hs) == \A n \in hs : LET d == Decide27(n, hs, {}, {}) IN ~Replicates(d) /\ d.del = "none"
-NoTasks(hs) == \A n \in hs : ~Replicates(Decide27(n, hs, {}, {}))
-n\* a check "replicates" when it hands the replicator a task with at least one candidate node. (With overlapping
-\* rules the code as found keeps calling the replicator with an EMPTY candidate list: a holder remembered from
-\* an earlier rule does not lower the shortage of a later rule - a phantom shortage that copies nothing.)
-Replicates(d) == \E k \in 1..Len(d.tasks) : Len(d.tasks[k].nodes) > 0
-Quiet(hs) == \A n \in hs : LET d == Decide27(n, hs, {}, {}) IN ~Replicates(d) /\ d.del = "none"
-NoTasks(hs) == \A n \in hs : ~Replicates(Decide27(n, hs, {}, {}))
-
-\* a check "replicates" when it hands the replicator a task with at least one candidate node. (With overlapping
-\* rules the code as found keeps calling the replicator with an EMPTY candidate list: a holder remembered from
-\* an earlier rule does not lower the shortage of a later rule - a phantom shortage that copies nothing.)
-Replicates(d) == \E k \in 1..Len(d.tasks) : Len(d.tasks[k].nodes) > 0
-Quiet(hs) == \A n \in hs : LET d == Decide27(n, hs, {}, {}) IN ~Replicates(d) /\ d.del = "none"
-NoTasks(hs) == \A n \in hs : ~Replicates(Decide27(n, hs, {}, {}))
- \* a check "replicates" when it hands the replicator a task with at least one candidate node. (With overlapping
-\* rules the code as found keeps calling the replicator with an EMPTY candidate list: a holder remembered from
-\* an earlier rule does not lower the shortage of a later rule - a phantom shortage that copies nothing.)
-Replicates(d) == \E k \in 1..Len(d.tasks) : Len(d.tasks[k].nodes) > 0
-Quiet(hs) == \A n \in hs : LET d == Decide27(n, hs, {}, {}) IN ~Replicates(d) /\ d.del = "none"
-NoTasks(hs) == \A n \in hs : ~Replicates(Decide27(n, hs, {}, {}))
- \* a check "replicates" when it hands the replicator a task with at least one candidate node. (With overlapping
-\* rules the code as found keeps calling the replicator with an EMPTY candidate list: a holder remembered from
-\* an earlier rule does not lower the shortage of a later rule - a phantom shortage that copies nothing.)
-Replicates(d) == \E k \in 1..Len(d.tasks) : Len(d.tasks[k].nodes) > 0
-Quiet(hs) == \A n \in hs : LET d == Decide27(n, hs, {}, {}) IN ~Replicates(d) /\ d.del = "none"
-NoTasks(hs) == \A n \in hs : ~Replicates(Decide27(n, hs, {}, {}))
- \* a check "replicates" when it hands the replicator a task with at least one candidate node. (With overlapping
-\* rules the code as found keeps calling the replicator with an EMPTY candidate list: a holder remembered from
-\* an earlier rule does not lower the shortage of a later rule - a phantom shortage that copies nothing.)
-Replicates(d) == \E k \in 1..Len(d.tasks) : Len(d.tasks[k].nodes) > 0
-Quiet(hs) == \A n \in hs : LET d == Decide27(n, hs, {}, {}) IN ~Replicates(d) /\ d.del = "none"
-NoTasks(hs) == \A n \in hs : ~Replicates(Decide27(n, hs, {}, {}))
-`\* a check "replicates" when it hands the replicator a task with at least one candidate node. (With overlapping
-\* rules the code as found keeps calling the replicator with an EMPTY candidate list: a holder remembered from
-\* an earlier rule does not lower the shortage of a later rule - a phantom shortage that copies nothing.)
-Replicates(d) == \E k \in 1..Len(d.tasks) : Len(d.tasks[k].nodes) > 0
-Quiet(hs) == \A n \in hs : LET d == Decide27(n, hs, {}, {}) IN ~Replicates(d) /\ d.del = "none"
-NoTasks(hs) == \A n \in hs : ~Replicates(Decide27(n, hs, {}, {}))
-d\* a check "replicates" when it hands the replicator a task with at least one candidate node. (With overlapping
-\* rules the code as found keeps calling the replicator with an EMPTY candidate list: a holder remembered from
-\* an earlier rule does not lower the shortage of a later rule - a phantom shortage that copies nothing.)
-Replicates(d) == \E k \in 1..Len(d.tasks) : Len(d.tasks[k].nodes) > 0
-Quiet(hs) == \A n \in hs : LET d == Decide27(n, hs, {}, {}) IN ~Replicates(d) /\ d.del = "none"
-NoTasks(hs) == \A n \in hs : ~Replicates(Decide27(n, hs, {}, {}))
-o\* a check "replicates" when it hands the replicator a task with at least one candidate node. (With overlapping
-\* rules the code as found keeps calling the replicator with an EMPTY candidate list: a holder remembered from
-\* an earlier rule does not lower the shortage of a later rule - a phantom shortage that copies nothing.)
-Replicates(d) == \E k \in 1..Len(d.tasks) : Len(d.tasks[k].nodes) > 0
-Quiet(hs) == \A n \in hs : LET d == Decide27(n, hs, {}, {}) IN ~Replicates(d) /\ d.del = "none"
-NoTasks(hs) == \A n \in hs : ~Replicates(Decide27(n, hs, {}, {}))
-w\* a check "replicates" when it hands the replicator a task with at least one candidate node. (With overlapping
-\* rules the code as found keeps calling the replicator with an EMPTY candidate list: a holder remembered from
-\* an earlier rule does not lower the shortage of a later rule - a phantom shortage that copies nothing.)
-Replicates(d) == \E k \in 1..Len(d.tasks) : Len(d.tasks[k].nodes) > 0
-Quiet(hs) == \A n \in hs : LET d == Decide27(n, hs, {}, {}) IN ~Replicates(d) /\ d.del = "none"
-NoTasks(hs) == \A n \in hs : ~Replicates(Decide27(n, hs, {}, {}))
-n\* a check "replicates" when it hands the replicator a task with at least one candidate node. (With overlapping
-\* rules the code as found keeps calling the replicator with an EMPTY candidate list: a holder remembered from
-\* an earlier rule does not lower the shortage of a later rule - a phantom shortage that copies nothing.)
-Replicates(d) == \E k \in 1..Len(d.tasks) : Len(d.tasks[k].nodes) > 0
-Quiet(hs) == \A n \in hs : LET d == Decide27(n, hs, {}, {}) IN ~Replicates(d) /\ d.del = "none"
-NoTasks(hs) == \A n \in hs : ~Replicates(Decide27(n, hs, {}, {}))
-`\* a check "replicates" when it hands the replicator a task with at least one candidate node. (With overlapping
-\* rules the code as found keeps calling the replicator with an EMPTY candidate list: a holder remembered from
-\* an earlier rule does not lower the shortage of a later rule - a phantom shortage that copies nothing.)
-Replicates(d) == \E k \in 1..Len(d.tasks) : Len(d.tasks[k].nodes) > 0
-Quiet(hs) == \A n \in hs : LET d == Decide27(n, hs, {}, {}) IN ~Replicates(d) /\ d.del = "none"
-NoTasks(hs) == \A n \in hs : ~Replicates(Decide27(n, hs, {}, {}))
-,\* a check "replicates" when it hands the replicator a task with at least one candidate node. (With overlapping
-\* rules the code as found keeps calling the replicator with an EMPTY candidate list: a holder remembered from
-\* an earlier rule does not lower the shortage of a later rule - a phantom shortage that copies nothing.)
-Replicates(d) == \E k \in 1..Len(d.tasks) : Len(d.tasks[k].nodes) > 0
-Quiet(hs) == \A n \in hs : LET d == Decide27(n, hs, {}, {}) IN ~Replicates(d) /\ d.del = "none"
-NoTasks(hs) == \A n \in hs : ~Replicates(Decide27(n, hs, {}, {}))
- \* a check "replicates" when it hands the replicator a task with at least one candidate node. (With overlapping
-\* rules the code as found keeps calling the replicator with an EMPTY candidate list: a holder remembered from
-\* an earlier rule does not lower the shortage of a later rule - a phantom shortage that copies nothing.)
-Replicates(d) == \E k \in 1..Len(d.tasks) : Len(d.tasks[k].nodes) > 0
-Quiet(hs) == \A n \in hs : LET d == Decide27(n, hs, {}, {}) IN ~Replicates(d) /\ d.del = "none"
-NoTasks(hs) == \A n \in hs : ~Replicates(Decide27(n, hs, {}, {}))
-4\* a check "replicates" when it hands the replicator a task with at least one candidate node. (With overlapping
-\* rules the code as found keeps calling the replicator with an EMPTY candidate list: a holder remembered from
-\* an earlier rule does not lower the shortage of a later rule - a phantom shortage that copies nothing.)
-Replicates(d) == \E k \in 1..Len(d.tasks) : Len(d.tasks[k].nodes) > 0
-Quiet(hs) == \A n \in hs : LET d == Decide27(n, hs, {}, {}) IN ~Replicates(d) /\ d.del = "none"
-NoTasks(hs) == \A n \in hs : ~Replicates(Decide27(n, hs, {}, {}))
-0\* a check "replicates" when it hands the replicator a task with at least one candidate node. (With overlapping
-\* rules the code as found keeps calling the replicator with an EMPTY candidate list: a holder remembered from
-\* an earlier rule does not lower the shortage of a later rule - a phantom shortage that copies nothing.)
-Replicates(d) == \E k \in 1..Len(d.tasks) : Len(d.tasks[k].nodes) > 0
-Quiet(hs) == \A n \in hs : LET d == Decide27(n, hs, {}, {}) IN ~Replicates(d) /\ d.del = "none"
-NoTasks(hs) == \A n \in hs : ~Replicates(Decide27(n, hs, {}, {}))
-4\* a check "replicates" when it hands the replicator a task with at least one candidate node. (With overlapping
-\* rules the code as found keeps calling the replicator with an EMPTY candidate list: a holder remembered from
-\* an earlier rule does not lower the shortage of a later rule - a phantom shortage that copies nothing.)
-Replicates(d) == \E k \in 1..Len(d.tasks) : Len(d.tasks[k].nodes) > 0
-Quiet(hs) == \A n \in hs : LET d == Decide27(n, hs, {}, {}) IN ~Replicates(d) /\ d.del = "none"
-NoTasks(hs) == \A n \in hs : ~Replicates(Decide27(n, hs, {}, {}))
- \* a check "replicates" when it hands the replicator a task with at least one candidate node. (With overlapping
-\* rules the code as found keeps calling the replicator with an EMPTY candidate list: a holder remembered from
-\* an earlier rule does not lower the shortage of a later rule - a phantom shortage that copies nothing.)
-Replicates(d) == \E k \in 1..Len(d.tasks) : Len(d.tasks[k].nodes) > 0
-Quiet(hs) == \A n \in hs : LET d == Decide27(n, hs, {}, {}) IN ~Replicates(d) /\ d.del = "none"
-NoTasks(hs) == \A n \in hs : ~Replicates(Decide27(n, hs, {}, {}))
-+\* a check "replicates" when it hands the replicator a task with at least one candidate node. (With overlapping
-\* rules the code as found keeps calling the replicator with an EMPTY candidate list: a holder remembered from
-\* an earlier rule does not lower the shortage of a later rule - a phantom shortage that copies nothing.)
-Replicates(d) == \E k \in 1..Len(d.tasks) : Len(d.tasks[k].nodes) > 0
-Quiet(hs) == \A n \in hs : LET d == Decide27(n, hs, {}, {}) IN ~Replicates(d) /\ d.del = "none"
-NoTasks(hs) == \A n \in hs : ~Replicates(Decide27(n, hs, {}, {}))
- \* a check "replicates" when it hands the replicator a task with at least one candidate node. (With overlapping
-\* rules the code as found keeps calling the replicator with an EMPTY candidate list: a holder remembered from
-\* an earlier rule does not lower the shortage of a later rule - a phantom shortage that copies nothing.)
-Replicates(d) == \E k \in 1..Len(d.tasks) : Len(d.tasks[k].nodes) > 0
-Quiet(hs) == \A n \in hs : LET d == Decide27(n, hs, {}, {}) IN ~Replicates(d) /\ d.del = "none"
-NoTasks(hs) == \A n \in hs : ~Replicates(Decide27(n, hs, {}, {}))
-r\* a check "replicates" when it hands the replicator a task with at least one candidate node. (With overlapping
-\* rules the code as found keeps calling the replicator with an EMPTY candidate list: a holder remembered from
-\* an earlier rule does not lower the shortage of a later rule - a phantom shortage that copies nothing.)
-Replicates(d) == \E k \in 1..Len(d.tasks) : Len(d.tasks[k].nodes) > 0
-Quiet(hs) == \A n \in hs : LET d == Decide27(n, hs, {}, {}) IN ~Replicates(d) /\ d.del = "none"
-NoTasks(hs) == \A n \in hs : ~Replicates(Decide27(n, hs, {}, {}))
-e\* a check "replicates" when it hands the replicator a task with at least one candidate node. (With overlapping
-\* rules the code as found keeps calling the replicator with an EMPTY candidate list: a holder remembered from
-\* an earlier rule does not lower the shortage of a later rule - a phantom shortage that copies nothing.)
-Replicates(d) == \E k \in 1..Len(d.tasks) : Len(d.tasks[k].nodes) > 0
-Quiet(hs) == \A n \in hs : LET d == Decide27(n, hs, {}, {}) IN ~Replicates(d) /\ d.del = "none"
-NoTasks(hs) == \A n \in hs : ~Replicates(Decide27(n, hs, {}, {}))
-f\* a check "replicates" when it hands the replicator a task with at least one candidate node. (With overlapping
-\* rules the code as found keeps calling the replicator with an EMPTY candidate list: a holder remembered from
-\* an earlier rule does not lower the shortage of a later rule - a phantom shortage that copies nothing.)
-Replicates(d) == \E k \in 1..Len(d.tasks) : Len(d.tasks[k].nodes) > 0
-Quiet(hs) == \A n \in hs : LET d == Decide27(n, hs, {}, {}) IN ~Replicates(d) /\ d.del = "none"
-NoTasks(hs) == \A n \in hs : ~Replicates(Decide27(n, hs, {}, {}))
-u\* a check "replicates" when it hands the replicator a task with at least one candidate node. (With overlapping
-\* rules the code as found keeps calling the replicator with an EMPTY candidate list: a holder remembered from
-\* an earlier rule does not lower the shortage of a later rule - a phantom shortage that copies nothing.)
-Replicates(d) == \E k \in 1..Len(d.tasks) : Len(d.tasks[k].nodes) > 0
-Quiet(hs) == \A n \in hs : LET d == Decide27(n, hs, {}, {}) IN ~Replicates(d) /\ d.del = "none"
-NoTasks(hs) == \A n \in hs : ~Replicates(Decide27(n, hs, {}, {}))
-s\* a check "replicates" when it hands the replicator a task with at least one candidate node. (With overlapping
-\* rules the code as found keeps calling the replicator with an EMPTY candidate list: a holder remembered from
-\* an earlier rule does not lower the shortage of a later rule - a phantom shortage that copies nothing.)
-Replicates(d) == \E k \in 1..Len(d.tasks) : Len(d.tasks[k].nodes) > 0
-Quiet(hs) == \A n \in hs : LET d == Decide27(n, hs, {}, {}) IN ~Replicates(d) /\ d.del = "none"
-NoTasks(hs) == \A n \in hs : ~Replicates(Decide27(n, hs, {}, {}))
-e\* a check "replicates" when it hands the replicator a task with at least one candidate node. (With overlapping
-\* rules the code as found keeps calling the replicator with an EMPTY candidate list: a holder remembered from
-\* an earlier rule does not lower the shortage of a later rule - a phantom shortage that copies nothing.)
-Replicates(d) == \E k \in 1..Len(d.tasks) : Len(d.tasks[k].nodes) > 0
-Quiet(hs) == \A n \in hs : LET d == Decide27(n, hs, {}, {}) IN ~Replicates(d) /\ d.del = "none"
-NoTasks(hs) == \A n \in hs : ~Replicates(Decide27(n, hs, {}, {}))
-d\* a check "replicates" when it hands the replicator a task with at least one candidate node. (With overlapping
-\* rules the code as found keeps calling the replicator with an EMPTY candidate list: a holder remembered from
-\* an earlier rule does not lower the shortage of a later rule - a phantom shortage that copies nothing.)
-Replicates(d) == \E k \in 1..Len(d.tasks) : Len(d.tasks[k].nodes) > 0
-Quiet(hs) == \A n \in hs : LET d == Decide27(n, hs, {}, {}) IN ~Replicates(d) /\ d.del = "none"
-NoTasks(hs) == \A n \in hs : ~Replicates(Decide27(n, hs, {}, {}))
- \* a check "replicates" when it hands the replicator a task with at least one candidate node. (With overlapping
-\* rules the code as found keeps calling the replicator with an EMPTY candidate list: a holder remembered from
-\* an earlier rule does not lower the shortage of a later rule - a phantom shortage that copies nothing.)
-Replicates(d) == \E k \in 1..Len(d.tasks) : Len(d.tasks[k].nodes) > 0
-Quiet(hs) == \A n \in hs : LET d == Decide27(n, hs, {}, {}) IN ~Replicates(d) /\ d.del = "none"
-NoTasks(hs) == \A n \in hs : ~Replicates(Decide27(n, hs, {}, {}))
-r\* a check "replicates" when it hands the replicator a task with at least one candidate node. (With overlapping
-\* rules the code as found keeps calling the replicator with an EMPTY candidate list: a holder remembered from
-\* an earlier rule does not lower the shortage of a later rule - a phantom shortage that copies nothing.)
-Replicates(d) == \E k \in 1..Len(d.tasks) : Len(d.tasks[k].nodes) > 0
-Quiet(hs) == \A n \in hs : LET d == Decide27(n, hs, {}, {}) IN ~Replicates(d) /\ d.del = "none"
-NoTasks(hs) == \A n \in hs : ~Replicates(Decide27(n, hs, {}, {}))
-e\* a check "replicates" when it hands the replicator a task with at least one candidate node. (With overlapping
-\* rules the code as found keeps calling the replicator with an EMPTY candidate list: a holder remembered from
-\* an earlier rule does not lower the shortage of a later rule - a phantom shortage that copies nothing.)
-Replicates(d) == \E k \in 1..Len(d.tasks) : Len(d.tasks[k].nodes) > 0
-Quiet(hs) == \A n \in hs : LET d == Decide27(n, hs, {}, {}) IN ~Replicates(d) /\ d.del = "none"
-NoTasks(hs) == \A n \in hs : ~Replicates(Decide27(n, hs, {}, {}))
-p\* a check "replicates" when it hands the replicator a task with at least one candidate node. (With overlapping
-\* rules the code as found keeps calling the replicator with an EMPTY candidate list: a holder remembered from
-\* an earlier rule does not lower the shortage of a later rule - a phantom shortage that copies nothing.)
-Replicates(d) == \E k \in 1..Len(d.tasks) : Len(d.tasks[k].nodes) > 0
-Quiet(hs) == \A n \in hs : LET d == Decide27(n, hs, {}, {}) IN ~Replicates(d) /\ d.del = "none"
-NoTasks(hs) == \A n \in hs : ~Replicates(Decide27(n, hs, {}, {}))
-l\* a check "replicates" when it hands the replicator a task with at least one candidate node. (With overlapping
-\* rules the code as found keeps calling the replicator with an EMPTY candidate list: a holder remembered from
-\* an earlier rule does not lower the shortage of a later rule - a phantom shortage that copies nothing.)
-Replicates(d) == \E k \in 1..Len(d.tasks) : Len(d.tasks[k].nodes) > 0
-Quiet(hs) == \A n \in hs : LET d == Decide27(n, hs, {}, {}) IN ~Replicates(d) /\ d.del = "none"
-NoTasks(hs) == \A n \in hs : ~Replicates(Decide27(n, hs, {}, {}))
-i\* a check "replicates" when it hands the replicator a task with at least one candidate node. (With overlapping
-\* rules the code as found keeps calling the replicator with an EMPTY candidate list: a holder remembered from
-\* an earlier rule does not lower the shortage of a later rule - a phantom shortage that copies nothing.)
-Replicates(d) == \E k \in 1..Len(d.tasks) : Len(d.tasks[k].nodes) > 0
-Quiet(hs) == \A n \in hs : LET d == Decide27(n, hs, {}, {}) IN ~Replicates(d) /\ d.del = "none"
-NoTasks(hs) == \A n \in hs : ~Replicates(Decide27(n, hs, {}, {}))
-c\* a check "replicates" when it hands the replicator a task with at least one candidate node. (With overlapping
-\* rules the code as found keeps calling the replicator with an EMPTY candidate list: a holder remembered from
-\* an earlier rule does not lower the shortage of a later rule - a phantom shortage that copies nothing.)
-Replicates(d) == \E k \in 1..Len(d.tasks) : Len(d.tasks[k].nodes) > 0
-Quiet(hs) == \A n \in hs : LET d == Decide27(n, hs, {}, {}) IN ~Replicates(d) /\ d.del = "none"
-NoTasks(hs) == \A n \in hs : ~Replicates(Decide27(n, hs, {}, {}))
-a\* a check "replicates" when it hands the replicator a task with at least one candidate node. (With overlapping
-\* rules the code as found keeps calling the replicator with an EMPTY candidate list: a holder remembered from
-\* an earlier rule does not lower the shortage of a later rule - a phantom shortage that copies nothing.)
-Replicates(d) == \E k \in 1..Len(d.tasks) : Len(d.tasks[k].nodes) > 0
-Quiet(hs) == \A n \in hs : LET d == Decide27(n, hs, {}, {}) IN ~Replicates(d) /\ d.del = "none"
-NoTasks(hs) == \A n \in hs : ~Replicates(Decide27(n, hs, {}, {}))
-t\* a check "replicates" when it hands the replicator a task with at least one candidate node. (With overlapping
-\* rules the code as found keeps calling the replicator with an EMPTY candidate list: a holder remembered from
-\* an earlier rule does not lower the shortage of a later rule - a phantom shortage that copies nothing.)
-Replicates(d) == \E k \in 1..Len(d.tasks) : Len(d.tasks[k].nodes) > 0
-Quiet(hs) == \A n \in hs : LET d == Decide27(n, hs, {}, {}) IN ~Replicates(d) /\ d.del = "none"
-NoTasks(hs) == \A n \in hs : ~Replicates(Decide27(n, hs, {}, {}))
-i\* a check "replicates" when it hands the replicator a task with at least one candidate node. (With overlapping
-\* rules the code as found keeps calling the replicator with an EMPTY candidate list: a holder remembered from
-\* an earlier rule does not lower the shortage of a later rule - a phantom shortage that copies nothing.)
-Replicates(d) == \E k \in 1..Len(d.tasks) : Len(d.tasks[k].nodes) > 0
-Quiet(hs) == \A n \in hs : LET d == Decide27(n, hs, {}, {}) IN ~Replicates(d) /\ d.del = "none"
-NoTasks(hs) == \A n \in hs : ~Replicates(Decide27(n, hs, {}, {}))
-o\* a check "replicates" when it hands the replicator a task with at least one candidate node. (With overlapping
-\* rules the code as found keeps calling the replicator with an EMPTY candidate list: a holder remembered from
-\* an earlier rule does not lower the shortage of a later rule - a phantom shortage that copies nothing.)
-Replicates(d) == \E k \in 1..Len(d.tasks) : Len(d.tasks[k].nodes) > 0
-Quiet(hs) == \A n \in hs : LET d == Decide27(n, hs, {}, {}) IN ~Replicates(d) /\ d.del = "none"
-NoTasks(hs) == \A n \in hs : ~Replicates(Decide27(n, hs, {}, {}))
-n\* a check "replicates" when it hands the replicator a task with at least one candidate node. (With overlapping
-\* rules the code as found keeps calling the replicator with an EMPTY candidate list: a holder remembered from
-\* an earlier rule does not lower the shortage of a later rule - a phantom shortage that copies nothing.)
-Replicates(d) == \E k \in 1..Len(d.tasks) : Len(d.tasks[k].nodes) > 0
-Quiet(hs) == \A n \in hs : LET d == Decide27(n, hs, {}, {}) IN ~Replicates(d) /\ d.del = "none"
-NoTasks(hs) == \A n \in hs : ~Replicates(Decide27(n, hs, {}, {}))
- \* a check "replicates" when it hands the replicator a task with at least one candidate node. (With overlapping
-\* rules the code as found keeps calling the replicator with an EMPTY candidate list: a holder remembered from
-\* an earlier rule does not lower the shortage of a later rule - a phantom shortage that copies nothing.)
-Replicates(d) == \E k \in 1..Len(d.tasks) : Len(d.tasks[k].nodes) > 0
-Quiet(hs) == \A n \in hs : LET d == Decide27(n, hs, {}, {}) IN ~Replicates(d) /\ d.del = "none"
-NoTasks(hs) == \A n \in hs : ~Replicates(Decide27(n, hs, {}, {}))
-f\* a check "replicates" when it hands the replicator a task with at least one candidate node. (With overlapping
-\* rules the code as found keeps calling the replicator with an EMPTY candidate list: a holder remembered from
-\* an earlier rule does not lower the shortage of a later rule - a phantom shortage that copies nothing.)
-Replicates(d) == \E k \in 1..Len(d.tasks) : Len(d.tasks[k].nodes) > 0
-Quiet(hs) == \A n \in hs : LET d == Decide27(n, hs, {}, {}) IN ~Replicates(d) /\ d.del = "none"
-NoTasks(hs) == \A n \in hs : ~Replicates(Decide27(n, hs, {}, {}))
-o\* a check "replicates" when it hands the replicator a task with at least one candidate node. (With overlapping
-\* rules the code as found keeps calling the replicator with an EMPTY candidate list: a holder remembered from
-\* an earlier rule does not lower the shortage of a later rule - a phantom shortage that copies nothing.)
-Replicates(d) == \E k \in 1..Len(d.tasks) : Len(d.tasks[k].nodes) > 0
-Quiet(hs) == \A n \in hs : LET d == Decide27(n, hs, {}, {}) IN ~Replicates(d) /\ d.del = "none"
-NoTasks(hs) == \A n \in hs : ~Replicates(Decide27(n, hs, {}, {}))
-r\* a check "replicates" when it hands the replicator a task with at least one candidate node. (With overlapping
-\* rules the code as found keeps calling the replicator with an EMPTY candidate list: a holder remembered from
-\* an earlier rule does not lower the shortage of a later rule - a phantom shortage that copies nothing.)
-Replicates(d) == \E k \in 1..Len(d.tasks) : Len(d.tasks[k].nodes) > 0
-Quiet(hs) == \A n \in hs : LET d == Decide27(n, hs, {}, {}) IN ~Replicates(d) /\ d.del = "none"
-NoTasks(hs) == \A n \in hs : ~Replicates(Decide27(n, hs, {}, {}))
- \* a check "replicates" when it hands the replicator a task with at least one candidate node. (With overlapping
-\* rules the code as found keeps calling the replicator with an EMPTY candidate list: a holder remembered from
-\* an earlier rule does not lower the shortage of a later rule - a phantom shortage that copies nothing.)
-Replicates(d) == \E k \in 1..Len(d.tasks) : Len(d.tasks[k].nodes) > 0
-Quiet(hs) == \A n \in hs : LET d == Decide27(n, hs, {}, {}) IN ~Replicates(d) /\ d.del = "none"
-NoTasks(hs) == \A n \in hs : ~Replicates(Decide27(n, hs, {}, {}))
-a\* a check "replicates" when it hands the replicator a task with at least one candidate node. (With overlapping
-\* rules the code as found keeps calling the replicator with an EMPTY candidate list: a holder remembered from
-\* an earlier rule does not lower the shortage of a later rule - a phantom shortage that copies nothing.)
-Replicates(d) == \E k \in 1..Len(d.tasks) : Len(d.tasks[k].nodes) > 0
-Quiet(hs) == \A n \in hs : LET d == Decide27(n, hs, {}, {}) IN ~Replicates(d) /\ d.del = "none"
-NoTasks(hs) == \A n \in hs : ~Replicates(Decide27(n, hs, {}, {}))
- \* a check "replicates" when it hands the replicator a task with at least one candidate node. (With overlapping
-\* rules the code as found keeps calling the replicator with an EMPTY candidate list: a holder remembered from
-\* an earlier rule does not lower the shortage of a later rule - a phantom shortage that copies nothing.)
-Replicates(d) == \E k \in 1..Len(d.tasks) : Len(d.tasks[k].nodes) > 0
-Quiet(hs) == \A n \in hs : LET d == Decide27(n, hs, {}, {}) IN ~Replicates(d) /\ d.del = "none"
-NoTasks(hs) == \A n \in hs : ~Replicates(Decide27(n, hs, {}, {}))
-n\* a check "replicates" when it hands the replicator a task with at least one candidate node. (With overlapping
-\* rules the code as found keeps calling the replicator with an EMPTY candidate list: a holder remembered from
-\* an earlier rule does not lower the shortage of a later rule - a phantom shortage that copies nothing.)
-Replicates(d) == \E k \in 1..Len(d.tasks) : Len(d.tasks[k].nodes) > 0
-Quiet(hs) == \A n \in hs : LET d == Decide27(n, hs, {}, {}) IN ~Replicates(d) /\ d.del = "none"
-NoTasks(hs) == \A n \in hs : ~Replicates(Decide27(n, hs, {}, {}))
-o\* a check "replicates" when it hands the replicator a task with at least one candidate node. (With overlapping
-\* rules the code as found keeps calling the replicator with an EMPTY candidate list: a holder remembered from
-\* an earlier rule does not lower the shortage of a later rule - a phantom shortage that copies nothing.)
-Replicates(d) == \E k \in 1..Len(d.tasks) : Len(d.tasks[k].nodes) > 0
-Quiet(hs) == \A n \in hs : LET d == Decide27(n, hs, {}, {}) IN ~Replicates(d) /\ d.del = "none"
-NoTasks(hs) == \A n \in hs : ~Replicates(Decide27(n, hs, {}, {}))
-d\* a check "replicates" when it hands the replicator a task with at least one candidate node. (With overlapping
-\* rules the code as found keeps calling the replicator with an EMPTY candidate list: a holder remembered from
-\* an earlier rule does not lower the shortage of a later rule - a phantom shortage that copies nothing.)
-Replicates(d) == \E k \in 1..Len(d.tasks) : Len(d.tasks[k].nodes) > 0
-Quiet(hs) == \A n \in hs : LET d == Decide27(n, hs, {}, {}) IN ~Replicates(d) /\ d.del = "none"
-NoTasks(hs) == \A n \in hs : ~Replicates(Decide27(n, hs, {}, {}))
-e\* a check "replicates" when it hands the replicator a task with at least one candidate node. (With overlapping
-\* rules the code as found keeps calling the replicator with an EMPTY candidate list: a holder remembered from
-\* an earlier rule does not lower the shortage of a later rule - a phantom shortage that copies nothing.)
-Replicates(d) == \E k \in 1..Len(d.tasks) : Len(d.tasks[k].nodes) > 0
-Quiet(hs) == \A n \in hs : LET d == Decide27(n, hs, {}, {}) IN ~Replicates(d) /\ d.del = "none"
-NoTasks(hs) == \A n \in hs : ~Replicates(Decide27(n, hs, {}, {}))
- \* a check "replicates" when it hands the replicator a task with at least one candidate node. (With overlapping
-\* rules the code as found keeps calling the replicator with an EMPTY candidate list: a holder remembered from
-\* an earlier rule does not lower the shortage of a later rule - a phantom shortage that copies nothing.)
-Replicates(d) == \E k \in 1..Len(d.tasks) : Len(d.tasks[k].nodes) > 0
-Quiet(hs) == \A n \in hs : LET d == Decide27(n, hs, {}, {}) IN ~Replicates(d) /\ d.del = "none"
-NoTasks(hs) == \A n \in hs : ~Replicates(Decide27(n, hs, {}, {}))
-i\* a check "replicates" when it hands the replicator a task with at least one candidate node. (With overlapping
-\* rules the code as found keeps calling the replicator with an EMPTY candidate list: a holder remembered from
-\* an earlier rule does not lower the shortage of a later rule - a phantom shortage that copies nothing.)
-Replicates(d) == \E k \in 1..Len(d.tasks) : Len(d.tasks[k].nodes) > 0
-Quiet(hs) == \A n \in hs : LET d == Decide27(n, hs, {}, {}) IN ~Replicates(d) /\ d.del = "none"
-NoTasks(hs) == \A n \in hs : ~Replicates(Decide27(n, hs, {}, {}))
-n\* a check "replicates" when it hands the replicator a task with at least one candidate node. (With overlapping
-\* rules the code as found keeps calling the replicator with an EMPTY candidate list: a holder remembered from
-\* an earlier rule does not lower the shortage of a later rule - a phantom shortage that copies nothing.)
-Replicates(d) == \E k \in 1..Len(d.tasks) : Len(d.tasks[k].nodes) > 0
-Quiet(hs) == \A n \in hs : LET d == Decide27(n, hs, {}, {}) IN ~Replicates(d) /\ d.del = "none"
-NoTasks(hs) == \A n \in hs : ~Replicates(Decide27(n, hs, {}, {}))
- \* a check "replicates" when it hands the replicator a task with at least one candidate node. (With overlapping
-\* rules the code as found keeps calling the replicator with an EMPTY candidate list: a holder remembered from
-\* an earlier rule does not lower the shortage of a later rule - a phantom shortage that copies nothing.)
-Replicates(d) == \E k \in 1..Len(d.tasks) : Len(d.tasks[k].nodes) > 0
-Quiet(hs) == \A n \in hs : LET d == Decide27(n, hs, {}, {}) IN ~Replicates(d) /\ d.del = "none"
-NoTasks(hs) == \A n \in hs : ~Replicates(Decide27(n, hs, {}, {}))
-`\* a check "replicates" when it hands the replicator a task with at least one candidate node. (With overlapping
-\* rules the code as found keeps calling the replicator with an EMPTY candidate list: a holder remembered from
-\* an earlier rule does not lower the shortage of a later rule - a phantom shortage that copies nothing.)
-Replicates(d) == \E k \in 1..Len(d.tasks) : Len(d.tasks[k].nodes) > 0
-Quiet(hs) == \A n \in hs : LET d == Decide27(n, hs, {}, {}) IN ~Replicates(d) /\ d.del = "none"
-NoTasks(hs) == \A n \in hs : ~Replicates(Decide27(n, hs, {}, {}))
-r\* a check "replicates" when it hands the replicator a task with at least one candidate node. (With overlapping
-\* rules the code as found keeps calling the replicator with an EMPTY candidate list: a holder remembered from
-\* an earlier rule does not lower the shortage of a later rule - a phantom shortage that copies nothing.)
-Replicates(d) == \E k \in 1..Len(d.tasks) : Len(d.tasks[k].nodes) > 0
-Quiet(hs) == \A n \in hs : LET d == Decide27(n, hs, {}, {}) IN ~Replicates(d) /\ d.del = "none"
-NoTasks(hs) == \A n \in hs : ~Replicates(Decide27(n, hs, {}, {}))
-e\* a check "replicates" when it hands the replicator a task with at least one candidate node. (With overlapping
-\* rules the code as found keeps calling the replicator with an EMPTY candidate list: a holder remembered from
-\* an earlier rule does not lower the shortage of a later rule - a phantom shortage that copies nothing.)
-Replicates(d) == \E k \in 1..Len(d.tasks) : Len(d.tasks[k].nodes) > 0
-Quiet(hs) == \A n \in hs : LET d == Decide27(n, hs, {}, {}) IN ~Replicates(d) /\ d.del = "none"
-NoTasks(hs) == \A n \in hs : ~Replicates(Decide27(n, hs, {}, {}))
-f\* a check "replicates" when it hands the replicator a task with at least one candidate node. (With overlapping
-\* rules the code as found keeps calling the replicator with an EMPTY candidate list: a holder remembered from
-\* an earlier rule does not lower the shortage of a later rule - a phantom shortage that copies nothing.)
-Replicates(d) == \E k \in 1..Len(d.tasks) : Len(d.tasks[k].nodes) > 0
-Quiet(hs) == \A n \in hs : LET d == Decide27(n, hs, {}, {}) IN ~Replicates(d) /\ d.del = "none"
-NoTasks(hs) == \A n \in hs : ~Replicates(Decide27(n, hs, {}, {}))
-u\* a check "replicates" when it hands the replicator a task with at least one candidate node. (With overlapping
-\* rules the code as found keeps calling the replicator with an EMPTY candidate list: a holder remembered from
-\* an earlier rule does not lower the shortage of a later rule - a phantom shortage that copies nothing.)
-Replicates(d) == \E k \in 1..Len(d.tasks) : Len(d.tasks[k].nodes) > 0
-Quiet(hs) == \A n \in hs : LET d == Decide27(n, hs, {}, {}) IN ~Replicates(d) /\ d.del = "none"
-NoTasks(hs) == \A n \in hs : ~Replicates(Decide27(n, hs, {}, {}))
-s\* a check "replicates" when it hands the replicator a task with at least one candidate node. (With overlapping
-\* rules the code as found keeps calling the replicator with an EMPTY candidate list: a holder remembered from
-\* an earlier rule does not lower the shortage of a later rule - a phantom shortage that copies nothing.)
-Replicates(d) == \E k \in 1..Len(d.tasks) : Len(d.tasks[k].nodes) > 0
-Quiet(hs) == \A n \in hs : LET d == Decide27(n, hs, {}, {}) IN ~Replicates(d) /\ d.del = "none"
-NoTasks(hs) == \A n \in hs : ~Replicates(Decide27(n, hs, {}, {}))
-e\* a check "replicates" when it hands the replicator a task with at least one candidate node. (With overlapping
-\* rules the code as found keeps calling the replicator with an EMPTY candidate list: a holder remembered from
-\* an earlier rule does not lower the shortage of a later rule - a phantom shortage that copies nothing.)
-Replicates(d) == \E k \in 1..Len(d.tasks) : Len(d.tasks[k].nodes) > 0
-Quiet(hs) == \A n \in hs : LET d == Decide27(n, hs, {}, {}) IN ~Replicates(d) /\ d.del = "none"
-NoTasks(hs) == \A n \in hs : ~Replicates(Decide27(n, hs, {}, {}))
-`\* a check "replicates" when it hands the replicator a task with at least one candidate node. (With overlapping
-\* rules the code as found keeps calling the replicator with an EMPTY candidate list: a holder remembered from
-\* an earlier rule does not lower the shortage of a later rule - a phantom shortage that copies nothing.)
-Replicates(d) == \E k \in 1..Len(d.tasks) : Len(d.tasks[k].nodes) > 0
-Quiet(hs) == \A n \in hs : LET d == Decide27(n, hs, {}, {}) IN ~Replicates(d) /\ d.del = "none"
-NoTasks(hs) == \A n \in hs : ~Replicates(Decide27(n, hs, {}, {}))
-.\* a check "replicates" when it hands the replicator a task with at least one candidate node. (With overlapping
-\* rules the code as found keeps calling the replicator with an EMPTY candidate list: a holder remembered from
-\* an earlier rule does not lower the shortage of a later rule - a phantom shortage that copies nothing.)
-Replicates(d) == \E k \in 1..Len(d.tasks) : Len(d.tasks[k].nodes) > 0
-Quiet(hs) == \A n \in hs : LET d == Decide27(n, hs, {}, {}) IN ~Replicates(d) /\ d.del = "none"
-NoTasks(hs) == \A n \in hs : ~Replicates(Decide27(n, hs, {}, {}))
- \* a check "replicates" when it hands the replicator a task with at least one candidate node. (With overlapping
-\* rules the code as found keeps calling the replicator with an EMPTY candidate list: a holder remembered from
-\* an earlier rule does not lower the shortage of a later rule - a phantom shortage that copies nothing.)
-Replicates(d) == \E k \in 1..Len(d.tasks) : Len(d.tasks[k].nodes) > 0
-Quiet(hs) == \A n \in hs : LET d == Decide27(n, hs, {}, {}) IN ~Replicates(d) /\ d.del = "none"
-NoTasks(hs) == \A n \in hs : ~Replicates(Decide27(n, hs, {}, {}))
-T\* a check "replicates" when it hands the replicator a task with at least one candidate node. (With overlapping
-\* rules the code as found keeps calling the replicator with an EMPTY candidate list: a holder remembered from
-\* an earlier rule does not lower the shortage of a later rule - a phantom shortage that copies nothing.)
-Replicates(d) == \E k \in 1..Len(d.tasks) : Len(d.tasks[k].nodes) > 0
-Quiet(hs) == \A n \in hs : LET d == Decide27(n, hs, {}, {}) IN ~Replicates(d) /\ d.del = "none"
-NoTasks(hs) == \A n \in hs : ~Replicates(Decide27(n, hs, {}, {}))
-h\* a check "replicates" when it hands the replicator a task with at least one candidate node. (With overlapping
-\* rules the code as found keeps calling the replicator with an EMPTY candidate list: a holder remembered from
-\* an earlier rule does not lower the shortage of a later rule - a phantom shortage that copies nothing.)
-Replicates(d) == \E k \in 1..Len(d.tasks) : Len(d.tasks[k].nodes) > 0
-Quiet(hs) == \A n \in hs : LET d == Decide27(n, hs, {}, {}) IN ~Replicates(d) /\ d.del = "none"
-NoTasks(hs) == \A n \in hs : ~Replicates(Decide27(n, hs, {}, {}))
-e\* a check "replicates" when it hands the replicator a task with at least one candidate node. (With overlapping
-\* rules the code as found keeps calling the replicator with an EMPTY candidate list: a holder remembered from
-\* an earlier rule does not lower the shortage of a later rule - a phantom shortage that copies nothing.)
-Replicates(d) == \E k \in 1..Len(d.tasks) : Len(d.tasks[k].nodes) > 0
-Quiet(hs) == \A n \in hs : LET d == Decide27(n, hs, {}, {}) IN ~Replicates(d) /\ d.del = "none"
-NoTasks(hs) == \A n \in hs : ~Replicates(Decide27(n, hs, {}, {}))
- \* a check "replicates" when it hands the replicator a task with at least one candidate node. (With overlapping
-\* rules the code as found keeps calling the replicator with an EMPTY candidate list: a holder remembered from
-\* an earlier rule does not lower the shortage of a later rule - a phantom shortage that copies nothing.)
-Replicates(d) == \E k \in 1..Len(d.tasks) : Len(d.tasks[k].nodes) > 0
-Quiet(hs) == \A n \in hs : LET d == Decide27(n, hs, {}, {}) IN ~Replicates(d) /\ d.del = "none"
-NoTasks(hs) == \A n \in hs : ~Replicates(Decide27(n, hs, {}, {}))
-r\* a check "replicates" when it hands the replicator a task with at least one candidate node. (With overlapping
-\* rules the code as found keeps calling the replicator with an EMPTY candidate list: a holder remembered from
-\* an earlier rule does not lower the shortage of a later rule - a phantom shortage that copies nothing.)
-Replicates(d) == \E k \in 1..Len(d.tasks) : Len(d.tasks[k].nodes) > 0
-Quiet(hs) == \A n \in hs : LET d == Decide27(n, hs, {}, {}) IN ~Replicates(d) /\ d.del = "none"
-NoTasks(hs) == \A n \in hs : ~Replicates(Decide27(n, hs, {}, {}))
-e\* a check "replicates" when it hands the replicator a task with at least one candidate node. (With overlapping
-\* rules the code as found keeps calling the replicator with an EMPTY candidate list: a holder remembered from
-\* an earlier rule does not lower the shortage of a later rule - a phantom shortage that copies nothing.)
-Replicates(d) == \E k \in 1..Len(d.tasks) : Len(d.tasks[k].nodes) > 0
-Quiet(hs) == \A n \in hs : LET d == Decide27(n, hs, {}, {}) IN ~Replicates(d) /\ d.del = "none"
-NoTasks(hs) == \A n \in hs : ~Replicates(Decide27(n, hs, {}, {}))
-s\* a check "replicates" when it hands the replicator a task with at least one candidate node. (With overlapping
-\* rules the code as found keeps calling the replicator with an EMPTY candidate list: a holder remembered from
-\* an earlier rule does not lower the shortage of a later rule - a phantom shortage that copies nothing.)
-Replicates(d) == \E k \in 1..Len(d.tasks) : Len(d.tasks[k].nodes) > 0
-Quiet(hs) == \A n \in hs : LET d == Decide27(n, hs, {}, {}) IN ~Replicates(d) /\ d.del = "none"
-NoTasks(hs) == \A n \in hs : ~Replicates(Decide27(n, hs, {}, {}))
-u\* a check "replicates" when it hands the replicator a task with at least one candidate node. (With overlapping
-\* rules the code as found keeps calling the replicator with an EMPTY candidate list: a holder remembered from
-\* an earlier rule does not lower the shortage of a later rule - a phantom shortage that copies nothing.)
-Replicates(d) == \E k \in 1..Len(d.tasks) : Len(d.tasks[k].nodes) > 0
-Quiet(hs) == \A n \in hs : LET d == Decide27(n, hs, {}, {}) IN ~Replicates(d) /\ d.del = "none"
-NoTasks(hs) == \A n \in hs : ~Replicates(Decide27(n, hs, {}, {}))
-l\* a check "replicates" when it hands the replicator a task with at least one candidate node. (With overlapping
-\* rules the code as found keeps calling the replicator with an EMPTY candidate list: a holder remembered from
-\* an earlier rule does not lower the shortage of a later rule - a phantom shortage that copies nothing.)
-Replicates(d) == \E k \in 1..Len(d.tasks) : Len(d.tasks[k].nodes) > 0
-Quiet(hs) == \A n \in hs : LET d == Decide27(n, hs, {}, {}) IN ~Replicates(d) /\ d.del = "none"
-NoTasks(hs) == \A n \in hs : ~Replicates(Decide27(n, hs, {}, {}))
-t\* a check "replicates" when it hands the replicator a task with at least one candidate node. (With overlapping
-\* rules the code as found keeps calling the replicator with an EMPTY candidate list: a holder remembered from
-\* an earlier rule does not lower the shortage of a later rule - a phantom shortage that copies nothing.)
-Replicates(d) == \E k \in 1..Len(d.tasks) : Len(d.tasks[k].nodes) > 0
-Quiet(hs) == \A n \in hs : LET d == Decide27(n, hs, {}, {}) IN ~Replicates(d) /\ d.del = "none"
-NoTasks(hs) == \A n \in hs : ~Replicates(Decide27(n, hs, {}, {}))
- \* a check "replicates" when it hands the replicator a task with at least one candidate node. (With overlapping
-\* rules the code as found keeps calling the replicator with an EMPTY candidate list: a holder remembered from
-\* an earlier rule does not lower the shortage of a later rule - a phantom shortage that copies nothing.)
-Replicates(d) == \E k \in 1..Len(d.tasks) : Len(d.tasks[k].nodes) > 0
-Quiet(hs) == \A n \in hs : LET d == Decide27(n, hs, {}, {}) IN ~Replicates(d) /\ d.del = "none"
-NoTasks(hs) == \A n \in hs : ~Replicates(Decide27(n, hs, {}, {}))
-m\* a check "replicates" when it hands the replicator a task with at least one candidate node. (With overlapping
-\* rules the code as found keeps calling the replicator with an EMPTY candidate list: a holder remembered from
-\* an earlier rule does not lower the shortage of a later rule - a phantom shortage that copies nothing.)
-Replicates(d) == \E k \in 1..Len(d.tasks) : Len(d.tasks[k].nodes) > 0
-Quiet(hs) == \A n \in hs : LET d == Decide27(n, hs, {}, {}) IN ~Replicates(d) /\ d.del = "none"
-NoTasks(hs) == \A n \in hs : ~Replicates(Decide27(n, hs, {}, {}))
-o\* a check "replicates" when it hands the replicator a task with at least one candidate node. (With overlapping
-\* rules the code as found keeps calling the replicator with an EMPTY candidate list: a holder remembered from
-\* an earlier rule does not lower the shortage of a later rule - a phantom shortage that copies nothing.)
-Replicates(d) == \E k \in 1..Len(d.tasks) : Len(d.tasks[k].nodes) > 0
-Quiet(hs) == \A n \in hs : LET d == Decide27(n, hs, {}, {}) IN ~Replicates(d) /\ d.del = "none"
-NoTasks(hs) == \A n \in hs : ~Replicates(Decide27(n, hs, {}, {}))
-v\* a check "replicates" when it hands the replicator a task with at least one candidate node. (With overlapping
-\* rules the code as found keeps calling the replicator with an EMPTY candidate list: a holder remembered from
-\* an earlier rule does not lower the shortage of a later rule - a phantom shortage that copies nothing.)
-Replicates(d) == \E k \in 1..Len(d.tasks) : Len(d.tasks[k].nodes) > 0
-Quiet(hs) == \A n \in hs : LET d == Decide27(n, hs, {}, {}) IN ~Replicates(d) /\ d.del = "none"
-NoTasks(hs) == \A n \in hs : ~Replicates(Decide27(n, hs, {}, {}))
-e\* a check "replicates" when it hands the replicator a task with at least one candidate node. (With overlapping
-\* rules the code as found keeps calling the replicator with an EMPTY candidate list: a holder remembered from
-\* an earlier rule does not lower the shortage of a later rule - a phantom shortage that copies nothing.)
-Replicates(d) == \E k \in 1..Len(d.tasks) : Len(d.tasks[k].nodes) > 0
-Quiet(hs) == \A n \in hs : LET d == Decide27(n, hs, {}, {}) IN ~Replicates(d) /\ d.del = "none"
-NoTasks(hs) == \A n \in hs : ~Replicates(Decide27(n, hs, {}, {}))
-s\* a check "replicates" when it hands the replicator a task with at least one candidate node. (With overlapping
-\* rules the code as found keeps calling the replicator with an EMPTY candidate list: a holder remembered from
-\* an earlier rule does not lower the shortage of a later rule - a phantom shortage that copies nothing.)
-Replicates(d) == \E k \in 1..Len(d.tasks) : Len(d.tasks[k].nodes) > 0
-Quiet(hs) == \A n \in hs : LET d == Decide27(n, hs, {}, {}) IN ~Replicates(d) /\ d.del = "none"
-NoTasks(hs) == \A n \in hs : ~Replicates(Decide27(n, hs, {}, {}))
- \* a check "replicates" when it hands the replicator a task with at least one candidate node. (With overlapping
-\* rules the code as found keeps calling the replicator with an EMPTY candidate list: a holder remembered from
-\* an earlier rule does not lower the shortage of a later rule - a phantom shortage that copies nothing.)
-Replicates(d) == \E k \in 1..Len(d.tasks) : Len(d.tasks[k].nodes) > 0
-Quiet(hs) == \A n \in hs : LET d == Decide27(n, hs, {}, {}) IN ~Replicates(d) /\ d.del = "none"
-NoTasks(hs) == \A n \in hs : ~Replicates(Decide27(n, hs, {}, {}))
-r\* a check "replicates" when it hands the replicator a task with at least one candidate node. (With overlapping
-\* rules the code as found keeps calling the replicator with an EMPTY candidate list: a holder remembered from
-\* an earlier rule does not lower the shortage of a later rule - a phantom shortage that copies nothing.)
-Replicates(d) == \E k \in 1..Len(d.tasks) : Len(d.tasks[k].nodes) > 0
-Quiet(hs) == \A n \in hs : LET d == Decide27(n, hs, {}, {}) IN ~Replicates(d) /\ d.del = "none"
-NoTasks(hs) == \A n \in hs : ~Replicates(Decide27(n, hs, {}, {}))
-e\* a check "replicates" when it hands the replicator a task with at least one candidate node. (With overlapping
-\* rules the code as found keeps calling the replicator with an EMPTY candidate list: a holder remembered from
-\* an earlier rule does not lower the shortage of a later rule - a phantom shortage that copies nothing.)
-Replicates(d) == \E k \in 1..Len(d.tasks) : Len(d.tasks[k].nodes) > 0
-Quiet(hs) == \A n \in hs : LET d == Decide27(n, hs, {}, {}) IN ~Replicates(d) /\ d.del = "none"
-NoTasks(hs) == \A n \in hs : ~Replicates(Decide27(n, hs, {}, {}))
-p\* a check "replicates" when it hands the replicator a task with at least one candidate node. (With overlapping
-\* rules the code as found keeps calling the replicator with an EMPTY candidate list: a holder remembered from
-\* an earlier rule does not lower the shortage of a later rule - a phantom shortage that copies nothing.)
-Replicates(d) == \E k \in 1..Len(d.tasks) : Len(d.tasks[k].nodes) > 0
-Quiet(hs) == \A n \in hs : LET d == Decide27(n, hs, {}, {}) IN ~Replicates(d) /\ d.del = "none"
-NoTasks(hs) == \A n \in hs : ~Replicates(Decide27(n, hs, {}, {}))
-l\* a check "replicates" when it hands the replicator a task with at least one candidate node. (With overlapping
-\* rules the code as found keeps calling the replicator with an EMPTY candidate list: a holder remembered from
-\* an earlier rule does not lower the shortage of a later rule - a phantom shortage that copies nothing.)
-Replicates(d) == \E k \in 1..Len(d.tasks) : Len(d.tasks[k].nodes) > 0
-Quiet(hs) == \A n \in hs : LET d == Decide27(n, hs, {}, {}) IN ~Replicates(d) /\ d.del = "none"
-NoTasks(hs) == \A n \in hs : ~Replicates(Decide27(n, hs, {}, {}))
-i\* a check "replicates" when it hands the replicator a task with at least one candidate node. (With overlapping
-\* rules the code as found keeps calling the replicator with an EMPTY candidate list: a holder remembered from
-\* an earlier rule does not lower the shortage of a later rule - a phantom shortage that copies nothing.)
-Replicates(d) == \E k \in 1..Len(d.tasks) : Len(d.tasks[k].nodes) > 0
-Quiet(hs) == \A n \in hs : LET d == Decide27(n, hs, {}, {}) IN ~Replicates(d) /\ d.del = "none"
-NoTasks(hs) == \A n \in hs : ~Replicates(Decide27(n, hs, {}, {}))
-c\* a check "replicates" when it hands the replicator a task with at least one candidate node. (With overlapping
-\* rules the code as found keeps calling the replicator with an EMPTY candidate list: a holder remembered from
-\* an earlier rule does not lower the shortage of a later rule - a phantom shortage that copies nothing.)
-Replicates(d) == \E k \in 1..Len(d.tasks) : Len(d.tasks[k].nodes) > 0
-Quiet(hs) == \A n \in hs : LET d == Decide27(n, hs, {}, {}) IN ~Replicates(d) /\ d.del = "none"
-NoTasks(hs) == \A n \in hs : ~Replicates(Decide27(n, hs, {}, {}))
-a\* a check "replicates" when it hands the replicator a task with at least one candidate node. (With overlapping
-\* rules the code as found keeps calling the replicator with an EMPTY candidate list: a holder remembered from
-\* an earlier rule does not lower the shortage of a later rule - a phantom shortage that copies nothing.)
-Replicates(d) == \E k \in 1..Len(d.tasks) : Len(d.tasks[k].nodes) > 0
-Quiet(hs) == \A n \in hs : LET d == Decide27(n, hs, {}, {}) IN ~Replicates(d) /\ d.del = "none"
-NoTasks(hs) == \A n \in hs : ~Replicates(Decide27(n, hs, {}, {}))
-s\* a check "replicates" when it hands the replicator a task with at least one candidate node. (With overlapping
-\* rules the code as found keeps calling the replicator with an EMPTY candidate list: a holder remembered from
-\* an earlier rule does not lower the shortage of a later rule - a phantom shortage that copies nothing.)
-Replicates(d) == \E k \in 1..Len(d.tasks) : Len(d.tasks[k].nodes) > 0
-Quiet(hs) == \A n \in hs : LET d == Decide27(n, hs, {}, {}) IN ~Replicates(d) /\ d.del = "none"
-NoTasks(hs) == \A n \in hs : ~Replicates(Decide27(n, hs, {}, {}))
-:\* a check "replicates" when it hands the replicator a task with at least one candidate node. (With overlapping
-\* rules the code as found keeps calling the replicator with an EMPTY candidate list: a holder remembered from
-\* an earlier rule does not lower the shortage of a later rule - a phantom shortage that copies nothing.)
-Replicates(d) == \E k \in 1..Len(d.tasks) : Len(d.tasks[k].nodes) > 0
-Quiet(hs) == \A n \in hs : LET d == Decide27(n, hs, {}, {}) IN ~Replicates(d) /\ d.del = "none"
-NoTasks(hs) == \A n \in hs : ~Replicates(Decide27(n, hs, {}, {}))
- \* a check "replicates" when it hands the replicator a task with at least one candidate node. (With overlapping
-\* rules the code as found keeps calling the replicator with an EMPTY candidate list: a holder remembered from
-\* an earlier rule does not lower the shortage of a later rule - a phantom shortage that copies nothing.)
-Replicates(d) == \E k \in 1..Len(d.tasks) : Len(d.tasks[k].nodes) > 0
-Quiet(hs) == \A n \in hs : LET d == Decide27(n, hs, {}, {}) IN ~Replicates(d) /\ d.del = "none"
-NoTasks(hs) == \A n \in hs : ~Replicates(Decide27(n, hs, {}, {}))
-h\* a check "replicates" when it hands the replicator a task with at least one candidate node. (With overlapping
-\* rules the code as found keeps calling the replicator with an EMPTY candidate list: a holder remembered from
-\* an earlier rule does not lower the shortage of a later rule - a phantom shortage that copies nothing.)
-Replicates(d) == \E k \in 1..Len(d.tasks) : Len(d.tasks[k].nodes) > 0
-Quiet(hs) == \A n \in hs : LET d == Decide27(n, hs, {}, {}) IN ~Replicates(d) /\ d.del = "none"
-NoTasks(hs) == \A n \in hs : ~Replicates(Decide27(n, hs, {}, {}))
-o\* a check "replicates" when it hands the replicator a task with at least one candidate node. (With overlapping
-\* rules the code as found keeps calling the replicator with an EMPTY candidate list: a holder remembered from
-\* an earlier rule does not lower the shortage of a later rule - a phantom shortage that copies nothing.)
-Replicates(d) == \E k \in 1..Len(d.tasks) : Len(d.tasks[k].nodes) > 0
-Quiet(hs) == \A n \in hs : LET d == Decide27(n, hs, {}, {}) IN ~Replicates(d) /\ d.del = "none"
-NoTasks(hs) == \A n \in hs : ~Replicates(Decide27(n, hs, {}, {}))
-l\* a check "replicates" when it hands the replicator a task with at least one candidate node. (With overlapping
-\* rules the code as found keeps calling the replicator with an EMPTY candidate list: a holder remembered from
-\* an earlier rule does not lower the shortage of a later rule - a phantom shortage that copies nothing.)
-Replicates(d) == \E k \in 1..Len(d.tasks) : Len(d.tasks[k].nodes) > 0
-Quiet(hs) == \A n \in hs : LET d == Decide27(n, hs, {}, {}) IN ~Replicates(d) /\ d.del = "none"
-NoTasks(hs) == \A n \in hs : ~Replicates(Decide27(n, hs, {}, {}))
-d\* a check "replicates" when it hands the replicator a task with at least one candidate node. (With overlapping
-\* rules the code as found keeps calling the replicator with an EMPTY candidate list: a holder remembered from
-\* an earlier rule does not lower the shortage of a later rule - a phantom shortage that copies nothing.)
-Replicates(d) == \E k \in 1..Len(d.tasks) : Len(d.tasks[k].nodes) > 0
-Quiet(hs) == \A n \in hs : LET d == Decide27(n, hs, {}, {}) IN ~Replicates(d) /\ d.del = "none"
-NoTasks(hs) == \A n \in hs : ~Replicates(Decide27(n, hs, {}, {}))
-e\* a check "replicates" when it hands the replicator a task with at least one candidate node. (With overlapping
-\* rules the code as found keeps calling the replicator with an EMPTY candidate list: a holder remembered from
-\* an earlier rule does not lower the shortage of a later rule - a phantom shortage that copies nothing.)
-Replicates(d) == \E k \in 1..Len(d.tasks) : Len(d.tasks[k].nodes) > 0
-Quiet(hs) == \A n \in hs : LET d == Decide27(n, hs, {}, {}) IN ~Replicates(d) /\ d.del = "none"
-NoTasks(hs) == \A n \in hs : ~Replicates(Decide27(n, hs, {}, {}))
-r\* a check "replicates" when it hands the replicator a task with at least one candidate node. (With overlapping
-\* rules the code as found keeps calling the replicator with an EMPTY candidate list: a holder remembered from
-\* an earlier rule does not lower the shortage of a later rule - a phantom shortage that copies nothing.)
-Replicates(d) == \E k \in 1..Len(d.tasks) : Len(d.tasks[k].nodes) > 0
-Quiet(hs) == \A n \in hs : LET d == Decide27(n, hs, {}, {}) IN ~Replicates(d) /\ d.del = "none"
-NoTasks(hs) == \A n \in hs : ~Replicates(Decide27(n, hs, {}, {}))
-s\* a check "replicates" when it hands the replicator a task with at least one candidate node. (With overlapping
-\* rules the code as found keeps calling the replicator with an EMPTY candidate list: a holder remembered from
-\* an earlier rule does not lower the shortage of a later rule - a phantom shortage that copies nothing.)
-Replicates(d) == \E k \in 1..Len(d.tasks) : Len(d.tasks[k].nodes) > 0
-Quiet(hs) == \A n \in hs : LET d == Decide27(n, hs, {}, {}) IN ~Replicates(d) /\ d.del = "none"
-NoTasks(hs) == \A n \in hs : ~Replicates(Decide27(n, hs, {}, {}))
-'\* a check "replicates" when it hands the replicator a task with at least one candidate node. (With overlapping
-\* rules the code as found keeps calling the replicator with an EMPTY candidate list: a holder remembered from
-\* an earlier rule does not lower the shortage of a later rule - a phantom shortage that copies nothing.)
-Replicates(d) == \E k \in 1..Len(d.tasks) : Len(d.tasks[k].nodes) > 0
-Quiet(hs) == \A n \in hs : LET d == Decide27(n, hs, {}, {}) IN ~Replicates(d) /\ d.del = "none"
-NoTasks(hs) == \A n \in hs : ~Replicates(Decide27(n, hs, {}, {}))
- \* a check "replicates" when it hands the replicator a task with at least one candidate node. (With overlapping
-\* rules the code as found keeps calling the replicator with an EMPTY candidate list: a holder remembered from
-\* an earlier rule does not lower the shortage of a later rule - a phantom shortage that copies nothing.)
-Replicates(d) == \E k \in 1..Len(d.tasks) : Len(d.tasks[k].nodes) > 0
-Quiet(hs) == \A n \in hs : LET d == Decide27(n, hs, {}, {}) IN ~Replicates(d) /\ d.del = "none"
-NoTasks(hs) == \A n \in hs : ~Replicates(Decide27(n, hs, {}, {}))
-=\* a check "replicates" when it hands the replicator a task with at least one candidate node. (With overlapping
-\* rules the code as found keeps calling the replicator with an EMPTY candidate list: a holder remembered from
-\* an earlier rule does not lower the shortage of a later rule - a phantom shortage that copies nothing.)
-Replicates(d) == \E k \in 1..Len(d.tasks) : Len(d.tasks[k].nodes) > 0
-Quiet(hs) == \A n \in hs : LET d == Decide27(n, hs, {}, {}) IN ~Replicates(d) /\ d.del = "none"
-NoTasks(hs) == \A n \in hs : ~Replicates(Decide27(n, hs, {}, {}))
- \* a check "replicates" when it hands the replicator a task with at least one candidate node. (With overlapping
-\* rules the code as found keeps calling the replicator with an EMPTY candidate list: a holder remembered from
-\* an earlier rule does not lower the shortage of a later rule - a phantom shortage that copies nothing.)
-Replicates(d) == \E k \in 1..Len(d.tasks) : Len(d.tasks[k].nodes) > 0
-Quiet(hs) == \A n \in hs : LET d == Decide27(n, hs, {}, {}) IN ~Replicates(d) /\ d.del = "none"
-NoTasks(hs) == \A n \in hs : ~Replicates(Decide27(n, hs, {}, {}))
-(\* a check "replicates" when it hands the replicator a task with at least one candidate node. (With overlapping
-\* rules the code as found keeps calling the replicator with an EMPTY candidate list: a holder remembered from
-\* an earlier rule does not lower the shortage of a later rule - a phantom shortage that copies nothing.)
-Replicates(d) == \E k \in 1..Len(d.tasks) : Len(d.tasks[k].nodes) > 0
-Quiet(hs) == \A n \in hs : LET d == Decide27(n, hs, {}, {}) IN ~Replicates(d) /\ d.del = "none"
-NoTasks(hs) == \A n \in hs : ~Replicates(Decide27(n, hs, {}, {}))
-h\* a check "replicates" when it hands the replicator a task with at least one candidate node. (With overlapping
-\* rules the code as found keeps calling the replicator with an EMPTY candidate list: a holder remembered from
-\* an earlier rule does not lower the shortage of a later rule - a phantom shortage that copies nothing.)
-Replicates(d) == \E k \in 1..Len(d.tasks) : Len(d.tasks[k].nodes) > 0
-Quiet(hs) == \A n \in hs : LET d == Decide27(n, hs, {}, {}) IN ~Replicates(d) /\ d.del = "none"
-NoTasks(hs) == \A n \in hs : ~Replicates(Decide27(n, hs, {}, {}))
-o\* a check "replicates" when it hands the replicator a task with at least one candidate node. (With overlapping
-\* rules the code as found keeps calling the replicator with an EMPTY candidate list: a holder remembered from
-\* an earlier rule does not lower the shortage of a later rule - a phantom shortage that copies nothing.)
-Replicates(d) == \E k \in 1..Len(d.tasks) : Len(d.tasks[k].nodes) > 0
-Quiet(hs) == \A n \in hs : LET d == Decide27(n, hs, {}, {}) IN ~Replicates(d) /\ d.del = "none"
-NoTasks(hs) == \A n \in hs : ~Replicates(Decide27(n, hs, {}, {}))
-l\* a check "replicates" when it hands the replicator a task with at least one candidate node. (With overlapping
-\* rules the code as found keeps calling the replicator with an EMPTY candidate list: a holder remembered from
-\* an earlier rule does not lower the shortage of a later rule - a phantom shortage that copies nothing.)
-Replicates(d) == \E k \in 1..Len(d.tasks) : Len(d.tasks[k].nodes) > 0
-Quiet(hs) == \A n \in hs : LET d == Decide27(n, hs, {}, {}) IN ~Replicates(d) /\ d.del = "none"
-NoTasks(hs) == \A n \in hs : ~Replicates(Decide27(n, hs, {}, {}))
-d\* a check "replicates" when it hands the replicator a task with at least one candidate node. (With overlapping
-\* rules the code as found keeps calling the replicator with an EMPTY candidate list: a holder remembered from
-\* an earlier rule does not lower the shortage of a later rule - a phantom shortage that copies nothing.)
-Replicates(d) == \E k \in 1..Len(d.tasks) : Len(d.tasks[k].nodes) > 0
-Quiet(hs) == \A n \in hs : LET d == Decide27(n, hs, {}, {}) IN ~Replicates(d) /\ d.del = "none"
-NoTasks(hs) == \A n \in hs : ~Replicates(Decide27(n, hs, {}, {}))
-e\* a check "replicates" when it hands the replicator a task with at least one candidate node. (With overlapping
-\* rules the code as found keeps calling the replicator with an EMPTY candidate list: a holder remembered from
-\* an earlier rule does not lower the shortage of a later rule - a phantom shortage that copies nothing.)
-Replicates(d) == \E k \in 1..Len(d.tasks) : Len(d.tasks[k].nodes) > 0
-Quiet(hs) == \A n \in hs : LET d == Decide27(n, hs, {}, {}) IN ~Replicates(d) /\ d.del = "none"
-NoTasks(hs) == \A n \in hs : ~Replicates(Decide27(n, hs, {}, {}))
-r\* a check "replicates" when it hands the replicator a task with at least one candidate node. (With overlapping
-\* rules the code as found keeps calling the replicator with an EMPTY candidate list: a holder remembered from
-\* an earlier rule does not lower the shortage of a later rule - a phantom shortage that copies nothing.)
-Replicates(d) == \E k \in 1..Len(d.tasks) : Len(d.tasks[k].nodes) > 0
-Quiet(hs) == \A n \in hs : LET d == Decide27(n, hs, {}, {}) IN ~Replicates(d) /\ d.del = "none"
-NoTasks(hs) == \A n \in hs : ~Replicates(Decide27(n, hs, {}, {}))
-s\* a check "replicates" when it hands the replicator a task with at least one candidate node. (With overlapping
-\* rules the code as found keeps calling the replicator with an EMPTY candidate list: a holder remembered from
-\* an earlier rule does not lower the shortage of a later rule - a phantom shortage that copies nothing.)
-Replicates(d) == \E k \in 1..Len(d.tasks) : Len(d.tasks[k].nodes) > 0
-Quiet(hs) == \A n \in hs : LET d == Decide27(n, hs, {}, {}) IN ~Replicates(d) /\ d.del = "none"
-NoTasks(hs) == \A n \in hs : ~Replicates(Decide27(n, hs, {}, {}))
- \* a check "replicates" when it hands the replicator a task with at least one candidate node. (With overlapping
-\* rules the code as found keeps calling the replicator with an EMPTY candidate list: a holder remembered from
-\* an earlier rule does not lower the shortage of a later rule - a phantom shortage that copies nothing.)
-Replicates(d) == \E k \in 1..Len(d.tasks) : Len(d.tasks[k].nodes) > 0
-Quiet(hs) == \A n \in hs : LET d == Decide27(n, hs, {}, {}) IN ~Replicates(d) /\ d.del = "none"
-NoTasks(hs) == \A n \in hs : ~Replicates(Decide27(n, hs, {}, {}))
-+\* a check "replicates" when it hands the replicator a task with at least one candidate node. (With overlapping
-\* rules the code as found keeps calling the replicator with an EMPTY candidate list: a holder remembered from
-\* an earlier rule does not lower the shortage of a later rule - a phantom shortage that copies nothing.)
-Replicates(d) == \E k \in 1..Len(d.tasks) : Len(d.tasks[k].nodes) > 0
-Quiet(hs) == \A n \in hs : LET d == Decide27(n, hs, {}, {}) IN ~Replicates(d) /\ d.del = "none"
-NoTasks(hs) == \A n \in hs : ~Replicates(Decide27(n, hs, {}, {}))
- \* a check "replicates" when it hands the replicator a task with at least one candidate node. (With overlapping
-\* rules the code as found keeps calling the replicator with an EMPTY candidate list: a holder remembered from
-\* an earlier rule does not lower the shortage of a later rule - a phantom shortage that copies nothing.)
-Replicates(d) == \E k \in 1..Len(d.tasks) : Len(d.tasks[k].nodes) > 0
-Quiet(hs) == \A n \in hs : LET d == Decide27(n, hs, {}, {}) IN ~Replicates(d) /\ d.del = "none"
-NoTasks(hs) == \A n \in hs : ~Replicates(Decide27(n, hs, {}, {}))
-n\* a check "replicates" when it hands the replicator a task with at least one candidate node. (With overlapping
-\* rules the code as found keeps calling the replicator with an EMPTY candidate list: a holder remembered from
-\* an earlier rule does not lower the shortage of a later rule - a phantom shortage that copies nothing.)
-Replicates(d) == \E k \in 1..Len(d.tasks) : Len(d.tasks[k].nodes) > 0
-Quiet(hs) == \A n \in hs : LET d == Decide27(n, hs, {}, {}) IN ~Replicates(d) /\ d.del = "none"
-NoTasks(hs) == \A n \in hs : ~Replicates(Decide27(n, hs, {}, {}))
-o\* a check "replicates" when it hands the replicator a task with at least one candidate node. (With overlapping
-\* rules the code as found keeps calling the replicator with an EMPTY candidate list: a holder remembered from
-\* an earlier rule does not lower the shortage of a later rule - a phantom shortage that copies nothing.)
-Replicates(d) == \E k \in 1..Len(d.tasks) : Len(d.tasks[k].nodes) > 0
-Quiet(hs) == \A n \in hs : LET d == Decide27(n, hs, {}, {}) IN ~Replicates(d) /\ d.del = "none"
-NoTasks(hs) == \A n \in hs : ~Replicates(Decide27(n, hs, {}, {}))
-d\* a check "replicates" when it hands the replicator a task with at least one candidate node. (With overlapping
-\* rules the code as found keeps calling the replicator with an EMPTY candidate list: a holder remembered from
-\* an earlier rule does not lower the shortage of a later rule - a phantom shortage that copies nothing.)
-Replicates(d) == \E k \in 1..Len(d.tasks) : Len(d.tasks[k].nodes) > 0
-Quiet(hs) == \A n \in hs : LET d == Decide27(n, hs, {}, {}) IN ~Replicates(d) /\ d.del = "none"
-NoTasks(hs) == \A n \in hs : ~Replicates(Decide27(n, hs, {}, {}))
-e\* a check "replicates" when it hands the replicator a task with at least one candidate node. (With overlapping
-\* rules the code as found keeps calling the replicator with an EMPTY candidate list: a holder remembered from
-\* an earlier rule does not lower the shortage of a later rule - a phantom shortage that copies nothing.)
-Replicates(d) == \E k \in 1..Len(d.tasks) : Len(d.tasks[k].nodes) > 0
-Quiet(hs) == \A n \in hs : LET d == Decide27(n, hs, {}, {}) IN ~Replicates(d) /\ d.del = "none"
-NoTasks(hs) == \A n \in hs : ~Replicates(Decide27(n, hs, {}, {}))
-s\* a check "replicates" when it hands the replicator a task with at least one candidate node. (With overlapping
-\* rules the code as found keeps calling the replicator with an EMPTY candidate list: a holder remembered from
-\* an earlier rule does not lower the shortage of a later rule - a phantom shortage that copies nothing.)
-Replicates(d) == \E k \in 1..Len(d.tasks) : Len(d.tasks[k].nodes) > 0
-Quiet(hs) == \A n \in hs : LET d == Decide27(n, hs, {}, {}) IN ~Replicates(d) /\ d.del = "none"
-NoTasks(hs) == \A n \in hs : ~Replicates(Decide27(n, hs, {}, {}))
- \* a check "replicates" when it hands the replicator a task with at least one candidate node. (With overlapping
-\* rules the code as found keeps calling the replicator with an EMPTY candidate list: a holder remembered from
-\* an earlier rule does not lower the shortage of a later rule - a phantom shortage that copies nothing.)
-Replicates(d) == \E k \in 1..Len(d.tasks) : Len(d.tasks[k].nodes) > 0
-Quiet(hs) == \A n \in hs : LET d == Decide27(n, hs, {}, {}) IN ~Replicates(d) /\ d.del = "none"
-NoTasks(hs) == \A n \in hs : ~Replicates(Decide27(n, hs, {}, {}))
-t\* a check "replicates" when it hands the replicator a task with at least one candidate node. (With overlapping
-\* rules the code as found keeps calling the replicator with an EMPTY candidate list: a holder remembered from
-\* an earlier rule does not lower the shortage of a later rule - a phantom shortage that copies nothing.)
-Replicates(d) == \E k \in 1..Len(d.tasks) : Len(d.tasks[k].nodes) > 0
-Quiet(hs) == \A n \in hs : LET d == Decide27(n, hs, {}, {}) IN ~Replicates(d) /\ d.del = "none"
-NoTasks(hs) == \A n \in hs : ~Replicates(Decide27(n, hs, {}, {}))
-h\* a check "replicates" when it hands the replicator a task with at least one candidate node. (With overlapping
-\* rules the code as found keeps calling the replicator with an EMPTY candidate list: a holder remembered from
-\* an earlier rule does not lower the shortage of a later rule - a phantom shortage that copies nothing.)
-Replicates(d) == \E k \in 1..Len(d.tasks) : Len(d.tasks[k].nodes) > 0
-Quiet(hs) == \A n \in hs : LET d == Decide27(n, hs, {}, {}) IN ~Replicates(d) /\ d.del = "none"
-NoTasks(hs) == \A n \in hs : ~Replicates(Decide27(n, hs, {}, {}))
-a\* a check "replicates" when it hands the replicator a task with at least one candidate node. (With overlapping
-\* rules the code as found keeps calling the replicator with an EMPTY candidate list: a holder remembered from
-\* an earlier rule does not lower the shortage of a later rule - a phantom shortage that copies nothing.)
-Replicates(d) == \E k \in 1..Len(d.tasks) : Len(d.tasks[k].nodes) > 0
-Quiet(hs) == \A n \in hs : LET d == Decide27(n, hs, {}, {}) IN ~Replicates(d) /\ d.del = "none"
-NoTasks(hs) == \A n \in hs : ~Replicates(Decide27(n, hs, {}, {}))
-t\* a check "replicates" when it hands the replicator a task with at least one candidate node. (With overlapping
-\* rules the code as found keeps calling the replicator with an EMPTY candidate list: a holder remembered from
-\* an earlier rule does not lower the shortage of a later rule - a phantom shortage that copies nothing.)
-Replicates(d) == \E k \in 1..Len(d.tasks) : Len(d.tasks[k].nodes) > 0
-Quiet(hs) == \A n \in hs : LET d == Decide27(n, hs, {}, {}) IN ~Replicates(d) /\ d.del = "none"
-NoTasks(hs) == \A n \in hs : ~Replicates(Decide27(n, hs, {}, {}))
- \* a check "replicates" when it hands the replicator a task with at least one candidate node. (With overlapping
-\* rules the code as found keeps calling the replicator with an EMPTY candidate list: a holder remembered from
-\* an earlier rule does not lower the shortage of a later rule - a phantom shortage that copies nothing.)
-Replicates(d) == \E k \in 1..Len(d.tasks) : Len(d.tasks[k].nodes) > 0
-Quiet(hs) == \A n \in hs : LET d == Decide27(n, hs, {}, {}) IN ~Replicates(d) /\ d.del = "none"
-NoTasks(hs) == \A n \in hs : ~Replicates(Decide27(n, hs, {}, {}))
-s\* a check "replicates" when it hands the replicator a task with at least one candidate node. (With overlapping
-\* rules the code as found keeps calling the replicator with an EMPTY candidate list: a holder remembered from
-\* an earlier rule does not lower the shortage of a later rule - a phantom shortage that copies nothing.)
-Replicates(d) == \E k \in 1..Len(d.tasks) : Len(d.tasks[k].nodes) > 0
-Quiet(hs) == \A n \in hs : LET d == Decide27(n, hs, {}, {}) IN ~Replicates(d) /\ d.del = "none"
-NoTasks(hs) == \A n \in hs : ~Replicates(Decide27(n, hs, {}, {}))
-t\* a check "replicates" when it hands the replicator a task with at least one candidate node. (With overlapping
-\* rules the code as found keeps calling the replicator with an EMPTY candidate list: a holder remembered from
-\* an earlier rule does not lower the shortage of a later rule - a phantom shortage that copies nothing.)
-Replicates(d) == \E k \in 1..Len(d.tasks) : Len(d.tasks[k].nodes) > 0
-Quiet(hs) == \A n \in hs : LET d == Decide27(n, hs, {}, {}) IN ~Replicates(d) /\ d.del = "none"
-NoTasks(hs) == \A n \in hs : ~Replicates(Decide27(n, hs, {}, {}))
-o\* a check "replicates" when it hands the replicator a task with at least one candidate node. (With overlapping
-\* rules the code as found keeps calling the replicator with an EMPTY candidate list: a holder remembered from
-\* an earlier rule does not lower the shortage of a later rule - a phantom shortage that copies nothing.)
-Replicates(d) == \E k \in 1..Len(d.tasks) : Len(d.tasks[k].nodes) > 0
-Quiet(hs) == \A n \in hs : LET d == Decide27(n, hs, {}, {}) IN ~Replicates(d) /\ d.del = "none"
-NoTasks(hs) == \A n \in hs : ~Replicates(Decide27(n, hs, {}, {}))
-r\* a check "replicates" when it hands the replicator a task with at least one candidate node. (With overlapping
-\* rules the code as found keeps calling the replicator with an EMPTY candidate list: a holder remembered from
-\* an earlier rule does not lower the shortage of a later rule - a phantom shortage that copies nothing.)
-Replicates(d) == \E k \in 1..Len(d.tasks) : Len(d.tasks[k].nodes) > 0
-Quiet(hs) == \A n \in hs : LET d == Decide27(n, hs, {}, {}) IN ~Replicates(d) /\ d.del = "none"
-NoTasks(hs) == \A n \in hs : ~Replicates(Decide27(n, hs, {}, {}))
-e\* a check "replicates" when it hands the replicator a task with at least one candidate node. (With overlapping
-\* rules the code as found keeps calling the replicator with an EMPTY candidate list: a holder remembered from
-\* an earlier rule does not lower the shortage of a later rule - a phantom shortage that copies nothing.)
-Replicates(d) == \E k \in 1..Len(d.tasks) : Len(d.tasks[k].nodes) > 0
-Quiet(hs) == \A n \in hs : LET d == Decide27(n, hs, {}, {}) IN ~Replicates(d) /\ d.del = "none"
-NoTasks(hs) == \A n \in hs : ~Replicates(Decide27(n, hs, {}, {}))
-d\* a check "replicates" when it hands the replicator a task with at least one candidate node. (With overlapping
-\* rules the code as found keeps calling the replicator with an EMPTY candidate list: a holder remembered from
-\* an earlier rule does not lower the shortage of a later rule - a phantom shortage that copies nothing.)
-Replicates(d) == \E k \in 1..Len(d.tasks) : Len(d.tasks[k].nodes) > 0
-Quiet(hs) == \A n \in hs : LET d == Decide27(n, hs, {}, {}) IN ~Replicates(d) /\ d.del = "none"
-NoTasks(hs) == \A n \in hs : ~Replicates(Decide27(n, hs, {}, {}))
-)\* a check "replicates" when it hands the replicator a task with at least one candidate node. (With overlapping
-\* rules the code as found keeps calling the replicator with an EMPTY candidate list: a holder remembered from
-\* an earlier rule does not lower the shortage of a later rule - a phantom shortage that copies nothing.)
-Replicates(d) == \E k \in 1..Len(d.tasks) : Len(d.tasks[k].nodes) > 0
-Quiet(hs) == \A n \in hs : LET d == Decide27(n, hs, {}, {}) IN ~Replicates(d) /\ d.del = "none"
-NoTasks(hs) == \A n \in hs : ~Replicates(Decide27(n, hs, {}, {}))
- \* a check "replicates" when it hands the replicator a task with at least one candidate node. (With overlapping
-\* rules the code as found keeps calling the replicator with an EMPTY candidate list: a holder remembered from
-\* an earlier rule does not lower the shortage of a later rule - a phantom shortage that copies nothing.)
-Replicates(d) == \E k \in 1..Len(d.tasks) : Len(d.tasks[k].nodes) > 0
-Quiet(hs) == \A n \in hs : LET d == Decide27(n, hs, {}, {}) IN ~Replicates(d) /\ d.del = "none"
-NoTasks(hs) == \A n \in hs : ~Replicates(Decide27(n, hs, {}, {}))
--\* a check "replicates" when it hands the replicator a task with at least one candidate node. (With overlapping
-\* rules the code as found keeps calling the replicator with an EMPTY candidate list: a holder remembered from
-\* an earlier rule does not lower the shortage of a later rule - a phantom shortage that copies nothing.)
-Replicates(d) == \E k \in 1..Len(d.tasks) : Len(d.tasks[k].nodes) > 0
-Quiet(hs) == \A n \in hs : LET d == Decide27(n, hs, {}, {}) IN ~Replicates(d) /\ d.del = "none"
-NoTasks(hs) == \A n \in hs : ~Replicates(Decide27(n, hs, {}, {}))
- \* a check "replicates" when it hands the replicator a task with at least one candidate node. (With overlapping
-\* rules the code as found keeps calling the replicator with an EMPTY candidate list: a holder remembered from
-\* an earlier rule does not lower the shortage of a later rule - a phantom shortage that copies nothing.)
-Replicates(d) == \E k \in 1..Len(d.tasks) : Len(d.tasks[k].nodes) > 0
-Quiet(hs) == \A n \in hs : LET d == Decide27(n, hs, {}, {}) IN ~Replicates(d) /\ d.del = "none"
-NoTasks(hs) == \A n \in hs : ~Replicates(Decide27(n, hs, {}, {}))
-(\* a check "replicates" when it hands the replicator a task with at least one candidate node. (With overlapping
-\* rules the code as found keeps calling the replicator with an EMPTY candidate list: a holder remembered from
-\* an earlier rule does not lower the shortage of a later rule - a phantom shortage that copies nothing.)
-Replicates(d) == \E k \in 1..Len(d.tasks) : Len(d.tasks[k].nodes) > 0
-Quiet(hs) == \A n \in hs : LET d == Decide27(n, hs, {}, {}) IN ~Replicates(d) /\ d.del = "none"
-NoTasks(hs) == \A n \in hs : ~Replicates(Decide27(n, hs, {}, {}))
-t\* a check "replicates" when it hands the replicator a task with at least one candidate node. (With overlapping
-\* rules the code as found keeps calling the replicator with an EMPTY candidate list: a holder remembered from
-\* an earlier rule does not lower the shortage of a later rule - a phantom shortage that copies nothing.)
-Replicates(d) == \E k \in 1..Len(d.tasks) : Len(d.tasks[k].nodes) > 0
-Quiet(hs) == \A n \in hs : LET d == Decide27(n, hs, {}, {}) IN ~Replicates(d) /\ d.del = "none"
-NoTasks(hs) == \A n \in hs : ~Replicates(Decide27(n, hs, {}, {}))
-h\* a check "replicates" when it hands the replicator a task with at least one candidate node. (With overlapping
-\* rules the code as found keeps calling the replicator with an EMPTY candidate list: a holder remembered from
-\* an earlier rule does not lower the shortage of a later rule - a phantom shortage that copies nothing.)
-Replicates(d) == \E k \in 1..Len(d.tasks) : Len(d.tasks[k].nodes) > 0
-Quiet(hs) == \A n \in hs : LET d == Decide27(n, hs, {}, {}) IN ~Replicates(d) /\ d.del = "none"
-NoTasks(hs) == \A n \in hs : ~Replicates(Decide27(n, hs, {}, {}))
-e\* a check "replicates" when it hands the replicator a task with at least one candidate node. (With overlapping
-\* rules the code as found keeps calling the replicator with an EMPTY candidate list: a holder remembered from
-\* an earlier rule does not lower the shortage of a later rule - a phantom shortage that copies nothing.)
-Replicates(d) == \E k \in 1..Len(d.tasks) : Len(d.tasks[k].nodes) > 0
-Quiet(hs) == \A n \in hs : LET d == Decide27(n, hs, {}, {}) IN ~Replicates(d) /\ d.del = "none"
-NoTasks(hs) == \A n \in hs : ~Replicates(Decide27(n, hs, {}, {}))
- \* a check "replicates" when it hands the replicator a task with at least one candidate node. (With overlapping
-\* rules the code as found keeps calling the replicator with an EMPTY candidate list: a holder remembered from
-\* an earlier rule does not lower the shortage of a later rule - a phantom shortage that copies nothing.)
-Replicates(d) == \E k \in 1..Len(d.tasks) : Len(d.tasks[k].nodes) > 0
-Quiet(hs) == \A n \in hs : LET d == Decide27(n, hs, {}, {}) IN ~Replicates(d) /\ d.del = "none"
-NoTasks(hs) == \A n \in hs : ~Replicates(Decide27(n, hs, {}, {}))
-n\* a check "replicates" when it hands the replicator a task with at least one candidate node. (With overlapping
-\* rules the code as found keeps calling the replicator with an EMPTY candidate list: a holder remembered from
-\* an earlier rule does not lower the shortage of a later rule - a phantom shortage that copies nothing.)
-Replicates(d) == \E k \in 1..Len(d.tasks) : Len(d.tasks[k].nodes) > 0
-Quiet(hs) == \A n \in hs : LET d == Decide27(n, hs, {}, {}) IN ~Replicates(d) /\ d.del = "none"
-NoTasks(hs) == \A n \in hs : ~Replicates(Decide27(n, hs, {}, {}))
-o\* a check "replicates" when it hands the replicator a task with at least one candidate node. (With overlapping
-\* rules the code as found keeps calling the replicator with an EMPTY candidate list: a holder remembered from
-\* an earlier rule does not lower the shortage of a later rule - a phantom shortage that copies nothing.)
-Replicates(d) == \E k \in 1..Len(d.tasks) : Len(d.tasks[k].nodes) > 0
-Quiet(hs) == \A n \in hs : LET d == Decide27(n, hs, {}, {}) IN ~Replicates(d) /\ d.del = "none"
-NoTasks(hs) == \A n \in hs : ~Replicates(Decide27(n, hs, {}, {}))
-d\* a check "replicates" when it hands the replicator a task with at least one candidate node. (With overlapping
-\* rules the code as found keeps calling the replicator with an EMPTY candidate list: a holder remembered from
-\* an earlier rule does not lower the shortage of a later rule - a phantom shortage that copies nothing.)
-Replicates(d) == \E k \in 1..Len(d.tasks) : Len(d.tasks[k].nodes) > 0
-Quiet(hs) == \A n \in hs : LET d == Decide27(n, hs, {}, {}) IN ~Replicates(d) /\ d.del = "none"
-NoTasks(hs) == \A n \in hs : ~Replicates(Decide27(n, hs, {}, {}))
-e\* a check "replicates" when it hands the replicator a task with at least one candidate node. (With overlapping
-\* rules the code as found keeps calling the replicator with an EMPTY candidate list: a holder remembered from
-\* an earlier rule does not lower the shortage of a later rule - a phantom shortage that copies nothing.)
-Replicates(d) == \E k \in 1..Len(d.tasks) : Len(d.tasks[k].nodes) > 0
-Quiet(hs) == \A n \in hs : LET d == Decide27(n, hs, {}, {}) IN ~Replicates(d) /\ d.del = "none"
-NoTasks(hs) == \A n \in hs : ~Replicates(Decide27(n, hs, {}, {}))
- \* a check "replicates" when it hands the replicator a task with at least one candidate node. (With overlapping
-\* rules the code as found keeps calling the replicator with an EMPTY candidate list: a holder remembered from
-\* an earlier rule does not lower the shortage of a later rule - a phantom shortage that copies nothing.)
-Replicates(d) == \E k \in 1..Len(d.tasks) : Len(d.tasks[k].nodes) > 0
-Quiet(hs) == \A n \in hs : LET d == Decide27(n, hs, {}, {}) IN ~Replicates(d) /\ d.del = "none"
-NoTasks(hs) == \A n \in hs : ~Replicates(Decide27(n, hs, {}, {}))
-i\* a check "replicates" when it hands the replicator a task with at least one candidate node. (With overlapping
-\* rules the code as found keeps calling the replicator with an EMPTY candidate list: a holder remembered from
-\* an earlier rule does not lower the shortage of a later rule - a phantom shortage that copies nothing.)
-Replicates(d) == \E k \in 1..Len(d.tasks) : Len(d.tasks[k].nodes) > 0
-Quiet(hs) == \A n \in hs : LET d == Decide27(n, hs, {}, {}) IN ~Replicates(d) /\ d.del = "none"
-NoTasks(hs) == \A n \in hs : ~Replicates(Decide27(n, hs, {}, {}))
-t\* a check "replicates" when it hands the replicator a task with at least one candidate node. (With overlapping
-\* rules the code as found keeps calling the replicator with an EMPTY candidate list: a holder remembered from
-\* an earlier rule does not lower the shortage of a later rule - a phantom shortage that copies nothing.)
-Replicates(d) == \E k \in 1..Len(d.tasks) : Len(d.tasks[k].nodes) > 0
-Quiet(hs) == \A n \in hs : LET d == Decide27(n, hs, {}, {}) IN ~Replicates(d) /\ d.del = "none"
-NoTasks(hs) == \A n \in hs : ~Replicates(Decide27(n, hs, {}, {}))
-s\* a check "replicates" when it hands the replicator a task with at least one candidate node. (With overlapping
-\* rules the code as found keeps calling the replicator with an EMPTY candidate list: a holder remembered from
-\* an earlier rule does not lower the shortage of a later rule - a phantom shortage that copies nothing.)
-Replicates(d) == \E k \in 1..Len(d.tasks) : Len(d.tasks[k].nodes) > 0
-Quiet(hs) == \A n \in hs : LET d == Decide27(n, hs, {}, {}) IN ~Replicates(d) /\ d.del = "none"
-NoTasks(hs) == \A n \in hs : ~Replicates(Decide27(n, hs, {}, {}))
-e\* a check "replicates" when it hands the replicator a task with at least one candidate node. (With overlapping
-\* rules the code as found keeps calling the replicator with an EMPTY candidate list: a holder remembered from
-\* an earlier rule does not lower the shortage of a later rule - a phantom shortage that copies nothing.)
-Replicates(d) == \E k \in 1..Len(d.tasks) : Len(d.tasks[k].nodes) > 0
-Quiet(hs) == \A n \in hs : LET d == Decide27(n, hs, {}, {}) IN ~Replicates(d) /\ d.del = "none"
-NoTasks(hs) == \A n \in hs : ~Replicates(Decide27(n, hs, {}, {}))
-l\* a check "replicates" when it hands the replicator a task with at least one candidate node. (With overlapping
-\* rules the code as found keeps calling the replicator with an EMPTY candidate list: a holder remembered from
-\* an earlier rule does not lower the shortage of a later rule - a phantom shortage that copies nothing.)
-Replicates(d) == \E k \in 1..Len(d.tasks) : Len(d.tasks[k].nodes) > 0
-Quiet(hs) == \A n \in hs : LET d == Decide27(n, hs, {}, {}) IN ~Replicates(d) /\ d.del = "none"
-NoTasks(hs) == \A n \in hs : ~Replicates(Decide27(n, hs, {}, {}))
-f\* a check "replicates" when it hands the replicator a task with at least one candidate node. (With overlapping
-\* rules the code as found keeps calling the replicator with an EMPTY candidate list: a holder remembered from
-\* an earlier rule does not lower the shortage of a later rule - a phantom shortage that copies nothing.)
-Replicates(d) == \E k \in 1..Len(d.tasks) : Len(d.tasks[k].nodes) > 0
-Quiet(hs) == \A n \in hs : LET d == Decide27(n, hs, {}, {}) IN ~Replicates(d) /\ d.del = "none"
-NoTasks(hs) == \A n \in hs : ~Replicates(Decide27(n, hs, {}, {}))
- \* a check "replicates" when it hands the replicator a task with at least one candidate node. (With overlapping
-\* rules the code as found keeps calling the replicator with an EMPTY candidate list: a holder remembered from
-\* an earlier rule does not lower the shortage of a later rule - a phantom shortage that copies nothing.)
-Replicates(d) == \E k \in 1..Len(d.tasks) : Len(d.tasks[k].nodes) > 0
-Quiet(hs) == \A n \in hs : LET d == Decide27(n, hs, {}, {}) IN ~Replicates(d) /\ d.del = "none"
-NoTasks(hs) == \A n \in hs : ~Replicates(Decide27(n, hs, {}, {}))
-i\* a check "replicates" when it hands the replicator a task with at least one candidate node. (With overlapping
-\* rules the code as found keeps calling the replicator with an EMPTY candidate list: a holder remembered from
-\* an earlier rule does not lower the shortage of a later rule - a phantom shortage that copies nothing.)
-Replicates(d) == \E k \in 1..Len(d.tasks) : Len(d.tasks[k].nodes) > 0
-Quiet(hs) == \A n \in hs : LET d == Decide27(n, hs, {}, {}) IN ~Replicates(d) /\ d.del = "none"
-NoTasks(hs) == \A n \in hs : ~Replicates(Decide27(n, hs, {}, {}))
-f\* a check "replicates" when it hands the replicator a task with at least one candidate node. (With overlapping
-\* rules the code as found keeps calling the replicator with an EMPTY candidate list: a holder remembered from
-\* an earlier rule does not lower the shortage of a later rule - a phantom shortage that copies nothing.)
-Replicates(d) == \E k \in 1..Len(d.tasks) : Len(d.tasks[k].nodes) > 0
-Quiet(hs) == \A n \in hs : LET d == Decide27(n, hs, {}, {}) IN ~Replicates(d) /\ d.del = "none"
-NoTasks(hs) == \A n \in hs : ~Replicates(Decide27(n, hs, {}, {}))
- \* a check "replicates" when it hands the replicator a task with at least one candidate node. (With overlapping
-\* rules the code as found keeps calling the replicator with an EMPTY candidate list: a holder remembered from
-\* an earlier rule does not lower the shortage of a later rule - a phantom shortage that copies nothing.)
-Replicates(d) == \E k \in 1..Len(d.tasks) : Len(d.tasks[k].nodes) > 0
-Quiet(hs) == \A n \in hs : LET d == Decide27(n, hs, {}, {}) IN ~Replicates(d) /\ d.del = "none"
-NoTasks(hs) == \A n \in hs : ~Replicates(Decide27(n, hs, {}, {}))
-i\* a check "replicates" when it hands the replicator a task with at least one candidate node. (With overlapping
-\* rules the code as found keeps calling the replicator with an EMPTY candidate list: a holder remembered from
-\* an earlier rule does not lower the shortage of a later rule - a phantom shortage that copies nothing.)
-Replicates(d) == \E k \in 1..Len(d.tasks) : Len(d.tasks[k].nodes) > 0
-Quiet(hs) == \A n \in hs : LET d == Decide27(n, hs, {}, {}) IN ~Replicates(d) /\ d.del = "none"
-NoTasks(hs) == \A n \in hs : ~Replicates(Decide27(n, hs, {}, {}))
-t\* a check "replicates" when it hands the replicator a task with at least one candidate node. (With overlapping
-\* rules the code as found keeps calling the replicator with an EMPTY candidate list: a holder remembered from
-\* an earlier rule does not lower the shortage of a later rule - a phantom shortage that copies nothing.)
-Replicates(d) == \E k \in 1..Len(d.tasks) : Len(d.tasks[k].nodes) > 0
-Quiet(hs) == \A n \in hs : LET d == Decide27(n, hs, {}, {}) IN ~Replicates(d) /\ d.del = "none"
-NoTasks(hs) == \A n \in hs : ~Replicates(Decide27(n, hs, {}, {}))
-
-\* a check "replicates" when it hands the replicator a task with at least one candidate node. (With overlapping
-\* rules the code as found keeps calling the replicator with an EMPTY candidate list: a holder remembered from
-\* an earlier rule does not lower the shortage of a later rule - a phantom shortage that copies nothing.)
-Replicates(d) == \E k \in 1..Len(d.tasks) : Len(d.tasks[k].nodes) > 0
-Quiet(hs) == \A n \in hs : LET d == Decide27(n, hs, {}, {}) IN ~Replicates(d) /\ d.del = "none"
-NoTasks(hs) == \A n \in hs : ~Replicates(Decide27(n, hs, {}, {}))
- \* a check "replicates" when it hands the replicator a task with at least one candidate node. (With overlapping
-\* rules the code as found keeps calling the replicator with an EMPTY candidate list: a holder remembered from
-\* an earlier rule does not lower the shortage of a later rule - a phantom shortage that copies nothing.)
-Replicates(d) == \E k \in 1..Len(d.tasks) : Len(d.tasks[k].nodes) > 0
-Quiet(hs) == \A n \in hs : LET d == Decide27(n, hs, {}, {}) IN ~Replicates(d) /\ d.del = "none"
-NoTasks(hs) == \A n \in hs : ~Replicates(Decide27(n, hs, {}, {}))
- \* a check "replicates" when it hands the replicator a task with at least one candidate node. (With overlapping
-\* rules the code as found keeps calling the replicator with an EMPTY candidate list: a holder remembered from
-\* an earlier rule does not lower the shortage of a later rule - a phantom shortage that copies nothing.)
-Replicates(d) == \E k \in 1..Len(d.tasks) : Len(d.tasks[k].nodes) > 0
-Quiet(hs) == \A n \in hs : LET d == Decide27(n, hs, {}, {}) IN ~Replicates(d) /\ d.del = "none"
-NoTasks(hs) == \A n \in hs : ~Replicates(Decide27(n, hs, {}, {}))
- \* a check "replicates" when it hands the replicator a task with at least one candidate node. (With overlapping
-\* rules the code as found keeps calling the replicator with an EMPTY candidate list: a holder remembered from
-\* an earlier rule does not lower the shortage of a later rule - a phantom shortage that copies nothing.)
-Replicates(d) == \E k \in 1..Len(d.tasks) : Len(d.tasks[k].nodes) > 0
-Quiet(hs) == \A n \in hs : LET d == Decide27(n, hs, {}, {}) IN ~Replicates(d) /\ d.del = "none"
-NoTasks(hs) == \A n \in hs : ~Replicates(Decide27(n, hs, {}, {}))
-r\* a check "replicates" when it hands the replicator a task with at least one candidate node. (With overlapping
-\* rules the code as found keeps calling the replicator with an EMPTY candidate list: a holder remembered from
-\* an earlier rule does not lower the shortage of a later rule - a phantom shortage that copies nothing.)
-Replicates(d) == \E k \in 1..Len(d.tasks) : Len(d.tasks[k].nodes) > 0
-Quiet(hs) == \A n \in hs : LET d == Decide27(n, hs, {}, {}) IN ~Replicates(d) /\ d.del = "none"
-NoTasks(hs) == \A n \in hs : ~Replicates(Decide27(n, hs, {}, {}))
-e\* a check "replicates" when it hands the replicator a task with at least one candidate node. (With overlapping
-\* rules the code as found keeps calling the replicator with an EMPTY candidate list: a holder remembered from
-\* an earlier rule does not lower the shortage of a later rule - a phantom shortage that copies nothing.)
-Replicates(d) == \E k \in 1..Len(d.tasks) : Len(d.tasks[k].nodes) > 0
-Quiet(hs) == \A n \in hs : LET d == Decide27(n, hs, {}, {}) IN ~Replicates(d) /\ d.del = "none"
-NoTasks(hs) == \A n \in hs : ~Replicates(Decide27(n, hs, {}, {}))
-m\* a check "replicates" when it hands the replicator a task with at least one candidate node. (With overlapping
-\* rules the code as found keeps calling the replicator with an EMPTY candidate list: a holder remembered from
-\* an earlier rule does not lower the shortage of a later rule - a phantom shortage that copies nothing.)
-Replicates(d) == \E k \in 1..Len(d.tasks) : Len(d.tasks[k].nodes) > 0
-Quiet(hs) == \A n \in hs : LET d == Decide27(n, hs, {}, {}) IN ~Replicates(d) /\ d.del = "none"
-NoTasks(hs) == \A n \in hs : ~Replicates(Decide27(n, hs, {}, {}))
-o\* a check "replicates" when it hands the replicator a task with at least one candidate node. (With overlapping
-\* rules the code as found keeps calling the replicator with an EMPTY candidate list: a holder remembered from
-\* an earlier rule does not lower the shortage of a later rule - a phantom shortage that copies nothing.)
-Replicates(d) == \E k \in 1..Len(d.tasks) : Len(d.tasks[k].nodes) > 0
-Quiet(hs) == \A n \in hs : LET d == Decide27(n, hs, {}, {}) IN ~Replicates(d) /\ d.del = "none"
-NoTasks(hs) == \A n \in hs : ~Replicates(Decide27(n, hs, {}, {}))
-v\* a check "replicates" when it hands the replicator a task with at least one candidate node. (With overlapping
-\* rules the code as found keeps calling the replicator with an EMPTY candidate list: a holder remembered from
-\* an earlier rule does not lower the shortage of a later rule - a phantom shortage that copies nothing.)
-Replicates(d) == \E k \in 1..Len(d.tasks) : Len(d.tasks[k].nodes) > 0
-Quiet(hs) == \A n \in hs : LET d == Decide27(n, hs, {}, {}) IN ~Replicates(d) /\ d.del = "none"
-NoTasks(hs) == \A n \in hs : ~Replicates(Decide27(n, hs, {}, {}))
-e\* a check "replicates" when it hands the replicator a task with at least one candidate node. (With overlapping
-\* rules the code as found keeps calling the replicator with an EMPTY candidate list: a holder remembered from
-\* an earlier rule does not lower the shortage of a later rule - a phantom shortage that copies nothing.)
-Replicates(d) == \E k \in 1..Len(d.tasks) : Len(d.tasks[k].nodes) > 0
-Quiet(hs) == \A n \in hs : LET d == Decide27(n, hs, {}, {}) IN ~Replicates(d) /\ d.del = "none"
-NoTasks(hs) == \A n \in hs : ~Replicates(Decide27(n, hs, {}, {}))
-d\* a check "replicates" when it hands the replicator a task with at least one candidate node. (With overlapping
-\* rules the code as found keeps calling the replicator with an EMPTY candidate list: a holder remembered from
-\* an earlier rule does not lower the shortage of a later rule - a phantom shortage that copies nothing.)
-Replicates(d) == \E k \in 1..Len(d.tasks) : Len(d.tasks[k].nodes) > 0
-Quiet(hs) == \A n \in hs : LET d == Decide27(n, hs, {}, {}) IN ~Replicates(d) /\ d.del = "none"
-NoTasks(hs) == \A n \in hs : ~Replicates(Decide27(n, hs, {}, {}))
- \* a check "replicates" when it hands the replicator a task with at least one candidate node. (With overlapping
-\* rules the code as found keeps calling the replicator with an EMPTY candidate list: a holder remembered from
-\* an earlier rule does not lower the shortage of a later rule - a phantom shortage that copies nothing.)
-Replicates(d) == \E k \in 1..Len(d.tasks) : Len(d.tasks[k].nodes) > 0
-Quiet(hs) == \A n \in hs : LET d == Decide27(n, hs, {}, {}) IN ~Replicates(d) /\ d.del = "none"
-NoTasks(hs) == \A n \in hs : ~Replicates(Decide27(n, hs, {}, {}))
-i\* a check "replicates" when it hands the replicator a task with at least one candidate node. (With overlapping
-\* rules the code as found keeps calling the replicator with an EMPTY candidate list: a holder remembered from
-\* an earlier rule does not lower the shortage of a later rule - a phantom shortage that copies nothing.)
-Replicates(d) == \E k \in 1..Len(d.tasks) : Len(d.tasks[k].nodes) > 0
-Quiet(hs) == \A n \in hs : LET d == Decide27(n, hs, {}, {}) IN ~Replicates(d) /\ d.del = "none"
-NoTasks(hs) == \A n \in hs : ~Replicates(Decide27(n, hs, {}, {}))
-t\* a check "replicates" when it hands the replicator a task with at least one candidate node. (With overlapping
-\* rules the code as found keeps calling the replicator with an EMPTY candidate list: a holder remembered from
-\* an earlier rule does not lower the shortage of a later rule - a phantom shortage that copies nothing.)
-Replicates(d) == \E k \in 1..Len(d.tasks) : Len(d.tasks[k].nodes) > 0
-Quiet(hs) == \A n \in hs : LET d == Decide27(n, hs, {}, {}) IN ~Replicates(d) /\ d.del = "none"
-NoTasks(hs) == \A n \in hs : ~Replicates(Decide27(n, hs, {}, {}))
-s\* a check "replicates" when it hands the replicator a task with at least one candidate node. (With overlapping
-\* rules the code as found keeps calling the replicator with an EMPTY candidate list: a holder remembered from
-\* an earlier rule does not lower the shortage of a later rule - a phantom shortage that copies nothing.)
-Replicates(d) == \E k \in 1..Len(d.tasks) : Len(d.tasks[k].nodes) > 0
-Quiet(hs) == \A n \in hs : LET d == Decide27(n, hs, {}, {}) IN ~Replicates(d) /\ d.del = "none"
-NoTasks(hs) == \A n \in hs : ~Replicates(Decide27(n, hs, {}, {}))
- \* a check "replicates" when it hands the replicator a task with at least one candidate node. (With overlapping
-\* rules the code as found keeps calling the replicator with an EMPTY candidate list: a holder remembered from
-\* an earlier rule does not lower the shortage of a later rule - a phantom shortage that copies nothing.)
-Replicates(d) == \E k \in 1..Len(d.tasks) : Len(d.tasks[k].nodes) > 0
-Quiet(hs) == \A n \in hs : LET d == Decide27(n, hs, {}, {}) IN ~Replicates(d) /\ d.del = "none"
-NoTasks(hs) == \A n \in hs : ~Replicates(Decide27(n, hs, {}, {}))
-c\* a check "replicates" when it hands the replicator a task with at least one candidate node. (With overlapping
-\* rules the code as found keeps calling the replicator with an EMPTY candidate list: a holder remembered from
-\* an earlier rule does not lower the shortage of a later rule - a phantom shortage that copies nothing.)
-Replicates(d) == \E k \in 1..Len(d.tasks) : Len(d.tasks[k].nodes) > 0
-Quiet(hs) == \A n \in hs : LET d == Decide27(n, hs, {}, {}) IN ~Replicates(d) /\ d.del = "none"
-NoTasks(hs) == \A n \in hs : ~Replicates(Decide27(n, hs, {}, {}))
-o\* a check "replicates" when it hands the replicator a task with at least one candidate node. (With overlapping
-\* rules the code as found keeps calling the replicator with an EMPTY candidate list: a holder remembered from
-\* an earlier rule does not lower the shortage of a later rule - a phantom shortage that copies nothing.)
-Replicates(d) == \E k \in 1..Len(d.tasks) : Len(d.tasks[k].nodes) > 0
-Quiet(hs) == \A n \in hs : LET d == Decide27(n, hs, {}, {}) IN ~Replicates(d) /\ d.del = "none"
-NoTasks(hs) == \A n \in hs : ~Replicates(Decide27(n, hs, {}, {}))
-p\* a check "replicates" when it hands the replicator a task with at least one candidate node. (With overlapping
-\* rules the code as found keeps calling the replicator with an EMPTY candidate list: a holder remembered from
-\* an earlier rule does not lower the shortage of a later rule - a phantom shortage that copies nothing.)
-Replicates(d) == \E k \in 1..Len(d.tasks) : Len(d.tasks[k].nodes) > 0
-Quiet(hs) == \A n \in hs : LET d == Decide27(n, hs, {}, {}) IN ~Replicates(d) /\ d.del = "none"
-NoTasks(hs) == \A n \in hs : ~Replicates(Decide27(n, hs, {}, {}))
-y\* a check "replicates" when it hands the replicator a task with at least one candidate node. (With overlapping
-\* rules the code as found keeps calling the replicator with an EMPTY candidate list: a holder remembered from
-\* an earlier rule does not lower the shortage of a later rule - a phantom shortage that copies nothing.)
-Replicates(d) == \E k \in 1..Len(d.tasks) : Len(d.tasks[k].nodes) > 0
-Quiet(hs) == \A n \in hs : LET d == Decide27(n, hs, {}, {}) IN ~Replicates(d) /\ d.del = "none"
-NoTasks(hs) == \A n \in hs : ~Replicates(Decide27(n, hs, {}, {}))
-)\* a check "replicates" when it hands the replicator a task with at least one candidate node. (With overlapping
-\* rules the code as found keeps calling the replicator with an EMPTY candidate list: a holder remembered from
-\* an earlier rule does not lower the shortage of a later rule - a phantom shortage that copies nothing.)
-Replicates(d) == \E k \in 1..Len(d.tasks) : Len(d.tasks[k].nodes) > 0
-Quiet(hs) == \A n \in hs : LET d == Decide27(n, hs, {}, {}) IN ~Replicates(d) /\ d.del = "none"
-NoTasks(hs) == \A n \in hs : ~Replicates(Decide27(n, hs, {}, {}))
-.\* a check "replicates" when it hands the replicator a task with at least one candidate node. (With overlapping
-\* rules the code as found keeps calling the replicator with an EMPTY candidate list: a holder remembered from
-\* an earlier rule does not lower the shortage of a later rule - a phantom shortage that copies nothing.)
-Replicates(d) == \E k \in 1..Len(d.tasks) : Len(d.tasks[k].nodes) > 0
-Quiet(hs) == \A n \in hs : LET d == Decide27(n, hs, {}, {}) IN ~Replicates(d) /\ d.del = "none"
-NoTasks(hs) == \A n \in hs : ~Replicates(Decide27(n, hs, {}, {}))
- \* a check "replicates" when it hands the replicator a task with at least one candidate node. (With overlapping
-\* rules the code as found keeps calling the replicator with an EMPTY candidate list: a holder remembered from
-\* an earlier rule does not lower the shortage of a later rule - a phantom shortage that copies nothing.)
-Replicates(d) == \E k \in 1..Len(d.tasks) : Len(d.tasks[k].nodes) > 0
-Quiet(hs) == \A n \in hs : LET d == Decide27(n, hs, {}, {}) IN ~Replicates(d) /\ d.del = "none"
-NoTasks(hs) == \A n \in hs : ~Replicates(Decide27(n, hs, {}, {}))
- \* a check "replicates" when it hands the replicator a task with at least one candidate node. (With overlapping
-\* rules the code as found keeps calling the replicator with an EMPTY candidate list: a holder remembered from
-\* an earlier rule does not lower the shortage of a later rule - a phantom shortage that copies nothing.)
-Replicates(d) == \E k \in 1..Len(d.tasks) : Len(d.tasks[k].nodes) > 0
-Quiet(hs) == \A n \in hs : LET d == Decide27(n, hs, {}, {}) IN ~Replicates(d) /\ d.del = "none"
-NoTasks(hs) == \A n \in hs : ~Replicates(Decide27(n, hs, {}, {}))
-R\* a check "replicates" when it hands the replicator a task with at least one candidate node. (With overlapping
-\* rules the code as found keeps calling the replicator with an EMPTY candidate list: a holder remembered from
-\* an earlier rule does not lower the shortage of a later rule - a phantom shortage that copies nothing.)
-Replicates(d) == \E k \in 1..Len(d.tasks) : Len(d.tasks[k].nodes) > 0
-Quiet(hs) == \A n \in hs : LET d == Decide27(n, hs, {}, {}) IN ~Replicates(d) /\ d.del = "none"
-NoTasks(hs) == \A n \in hs : ~Replicates(Decide27(n, hs, {}, {}))
-e\* a check "replicates" when it hands the replicator a task with at least one candidate node. (With overlapping
-\* rules the code as found keeps calling the replicator with an EMPTY candidate list: a holder remembered from
-\* an earlier rule does not lower the shortage of a later rule - a phantom shortage that copies nothing.)
-Replicates(d) == \E k \in 1..Len(d.tasks) : Len(d.tasks[k].nodes) > 0
-Quiet(hs) == \A n \in hs : LET d == Decide27(n, hs, {}, {}) IN ~Replicates(d) /\ d.del = "none"
-NoTasks(hs) == \A n \in hs : ~Replicates(Decide27(n, hs, {}, {}))
-p\* a check "replicates" when it hands the replicator a task with at least one candidate node. (With overlapping
-\* rules the code as found keeps calling the replicator with an EMPTY candidate list: a holder remembered from
-\* an earlier rule does not lower the shortage of a later rule - a phantom shortage that copies nothing.)
-Replicates(d) == \E k \in 1..Len(d.tasks) : Len(d.tasks[k].nodes) > 0
-Quiet(hs) == \A n \in hs : LET d == Decide27(n, hs, {}, {}) IN ~Replicates(d) /\ d.del = "none"
-NoTasks(hs) == \A n \in hs : ~Replicates(Decide27(n, hs, {}, {}))
-l\* a check "replicates" when it hands the replicator a task with at least one candidate node. (With overlapping
-\* rules the code as found keeps calling the replicator with an EMPTY candidate list: a holder remembered from
-\* an earlier rule does not lower the shortage of a later rule - a phantom shortage that copies nothing.)
-Replicates(d) == \E k \in 1..Len(d.tasks) : Len(d.tasks[k].nodes) > 0
-Quiet(hs) == \A n \in hs : LET d == Decide27(n, hs, {}, {}) IN ~Replicates(d) /\ d.del = "none"
-NoTasks(hs) == \A n \in hs : ~Replicates(Decide27(n, hs, {}, {}))
-i\* a check "replicates" when it hands the replicator a task with at least one candidate node. (With overlapping
-\* rules the code as found keeps calling the replicator with an EMPTY candidate list: a holder remembered from
-\* an earlier rule does not lower the shortage of a later rule - a phantom shortage that copies nothing.)
-Replicates(d) == \E k \in 1..Len(d.tasks) : Len(d.tasks[k].nodes) > 0
-Quiet(hs) == \A n \in hs : LET d == Decide27(n, hs, {}, {}) IN ~Replicates(d) /\ d.del = "none"
-NoTasks(hs) == \A n \in hs : ~Replicates(Decide27(n, hs, {}, {}))
-c\* a check "replicates" when it hands the replicator a task with at least one candidate node. (With overlapping
-\* rules the code as found keeps calling the replicator with an EMPTY candidate list: a holder remembered from
-\* an earlier rule does not lower the shortage of a later rule - a phantom shortage that copies nothing.)
-Replicates(d) == \E k \in 1..Len(d.tasks) : Len(d.tasks[k].nodes) > 0
-Quiet(hs) == \A n \in hs : LET d == Decide27(n, hs, {}, {}) IN ~Replicates(d) /\ d.del = "none"
-NoTasks(hs) == \A n \in hs : ~Replicates(Decide27(n, hs, {}, {}))
-a\* a check "replicates" when it hands the replicator a task with at least one candidate node. (With overlapping
-\* rules the code as found keeps calling the replicator with an EMPTY candidate list: a holder remembered from
-\* an earlier rule does not lower the shortage of a later rule - a phantom shortage that copies nothing.)
-Replicates(d) == \E k \in 1..Len(d.tasks) : Len(d.tasks[k].nodes) > 0
-Quiet(hs) == \A n \in hs : LET d == Decide27(n, hs, {}, {}) IN ~Replicates(d) /\ d.del = "none"
-NoTasks(hs) == \A n \in hs : ~Replicates(Decide27(n, hs, {}, {}))
-t\* a check "replicates" when it hands the replicator a task with at least one candidate node. (With overlapping
-\* rules the code as found keeps calling the replicator with an EMPTY candidate list: a holder remembered from
-\* an earlier rule does not lower the shortage of a later rule - a phantom shortage that copies nothing.)
-Replicates(d) == \E k \in 1..Len(d.tasks) : Len(d.tasks[k].nodes) > 0
-Quiet(hs) == \A n \in hs : LET d == Decide27(n, hs, {}, {}) IN ~Replicates(d) /\ d.del = "none"
-NoTasks(hs) == \A n \in hs : ~Replicates(Decide27(n, hs, {}, {}))
-i\* a check "replicates" when it hands the replicator a task with at least one candidate node. (With overlapping
-\* rules the code as found keeps calling the replicator with an EMPTY candidate list: a holder remembered from
-\* an earlier rule does not lower the shortage of a later rule - a phantom shortage that copies nothing.)
-Replicates(d) == \E k \in 1..Len(d.tasks) : Len(d.tasks[k].nodes) > 0
-Quiet(hs) == \A n \in hs : LET d == Decide27(n, hs, {}, {}) IN ~Replicates(d) /\ d.del = "none"
-NoTasks(hs) == \A n \in hs : ~Replicates(Decide27(n, hs, {}, {}))
-o\* a check "replicates" when it hands the replicator a task with at least one candidate node. (With overlapping
-\* rules the code as found keeps calling the replicator with an EMPTY candidate list: a holder remembered from
-\* an earlier rule does not lower the shortage of a later rule - a phantom shortage that copies nothing.)
-Replicates(d) == \E k \in 1..Len(d.tasks) : Len(d.tasks[k].nodes) > 0
-Quiet(hs) == \A n \in hs : LET d == Decide27(n, hs, {}, {}) IN ~Replicates(d) /\ d.del = "none"
-NoTasks(hs) == \A n \in hs : ~Replicates(Decide27(n, hs, {}, {}))
-n\* a check "replicates" when it hands the replicator a task with at least one candidate node. (With overlapping
-\* rules the code as found keeps calling the replicator with an EMPTY candidate list: a holder remembered from
-\* an earlier rule does not lower the shortage of a later rule - a phantom shortage that copies nothing.)
-Replicates(d) == \E k \in 1..Len(d.tasks) : Len(d.tasks[k].nodes) > 0
-Quiet(hs) == \A n \in hs : LET d == Decide27(n, hs, {}, {}) IN ~Replicates(d) /\ d.del = "none"
-NoTasks(hs) == \A n \in hs : ~Replicates(Decide27(n, hs, {}, {}))
- \* a check "replicates" when it hands the replicator a task with at least one candidate node. (With overlapping
-\* rules the code as found keeps calling the replicator with an EMPTY candidate list: a holder remembered from
-\* an earlier rule does not lower the shortage of a later rule - a phantom shortage that copies nothing.)
-Replicates(d) == \E k \in 1..Len(d.tasks) : Len(d.tasks[k].nodes) > 0
-Quiet(hs) == \A n \in hs : LET d == Decide27(n, hs, {}, {}) IN ~Replicates(d) /\ d.del = "none"
-NoTasks(hs) == \A n \in hs : ~Replicates(Decide27(n, hs, {}, {}))
-i\* a check "replicates" when it hands the replicator a task with at least one candidate node. (With overlapping
-\* rules the code as found keeps calling the replicator with an EMPTY candidate list: a holder remembered from
-\* an earlier rule does not lower the shortage of a later rule - a phantom shortage that copies nothing.)
-Replicates(d) == \E k \in 1..Len(d.tasks) : Len(d.tasks[k].nodes) > 0
-Quiet(hs) == \A n \in hs : LET d == Decide27(n, hs, {}, {}) IN ~Replicates(d) /\ d.del = "none"
-NoTasks(hs) == \A n \in hs : ~Replicates(Decide27(n, hs, {}, {}))
-n\* a check "replicates" when it hands the replicator a task with at least one candidate node. (With overlapping
-\* rules the code as found keeps calling the replicator with an EMPTY candidate list: a holder remembered from
-\* an earlier rule does not lower the shortage of a later rule - a phantom shortage that copies nothing.)
-Replicates(d) == \E k \in 1..Len(d.tasks) : Len(d.tasks[k].nodes) > 0
-Quiet(hs) == \A n \in hs : LET d == Decide27(n, hs, {}, {}) IN ~Replicates(d) /\ d.del = "none"
-NoTasks(hs) == \A n \in hs : ~Replicates(Decide27(n, hs, {}, {}))
-s\* a check "replicates" when it hands the replicator a task with at least one candidate node. (With overlapping
-\* rules the code as found keeps calling the replicator with an EMPTY candidate list: a holder remembered from
-\* an earlier rule does not lower the shortage of a later rule - a phantom shortage that copies nothing.)
-Replicates(d) == \E k \in 1..Len(d.tasks) : Len(d.tasks[k].nodes) > 0
-Quiet(hs) == \A n \in hs : LET d == Decide27(n, hs, {}, {}) IN ~Replicates(d) /\ d.del = "none"
-NoTasks(hs) == \A n \in hs : ~Replicates(Decide27(n, hs, {}, {}))
-i\* a check "replicates" when it hands the replicator a task with at least one candidate node. (With overlapping
-\* rules the code as found keeps calling the replicator with an EMPTY candidate list: a holder remembered from
-\* an earlier rule does not lower the shortage of a later rule - a phantom shortage that copies nothing.)
-Replicates(d) == \E k \in 1..Len(d.tasks) : Len(d.tasks[k].nodes) > 0
-Quiet(hs) == \A n \in hs : LET d == Decide27(n, hs, {}, {}) IN ~Replicates(d) /\ d.del = "none"
-NoTasks(hs) == \A n \in hs : ~Replicates(Decide27(n, hs, {}, {}))
-d\* a check "replicates" when it hands the replicator a task with at least one candidate node. (With overlapping
-\* rules the code as found keeps calling the replicator with an EMPTY candidate list: a holder remembered from
-\* an earlier rule does not lower the shortage of a later rule - a phantom shortage that copies nothing.)
-Replicates(d) == \E k \in 1..Len(d.tasks) : Len(d.tasks[k].nodes) > 0
-Quiet(hs) == \A n \in hs : LET d == Decide27(n, hs, {}, {}) IN ~Replicates(d) /\ d.del = "none"
-NoTasks(hs) == \A n \in hs : ~Replicates(Decide27(n, hs, {}, {}))
-e\* a check "replicates" when it hands the replicator a task with at least one candidate node. (With overlapping
-\* rules the code as found keeps calling the replicator with an EMPTY candidate list: a holder remembered from
-\* an earlier rule does not lower the shortage of a later rule - a phantom shortage that copies nothing.)
-Replicates(d) == \E k \in 1..Len(d.tasks) : Len(d.tasks[k].nodes) > 0
-Quiet(hs) == \A n \in hs : LET d == Decide27(n, hs, {}, {}) IN ~Replicates(d) /\ d.del = "none"
-NoTasks(hs) == \A n \in hs : ~Replicates(Decide27(n, hs, {}, {}))
- \* a check "replicates" when it hands the replicator a task with at least one candidate node. (With overlapping
-\* rules the code as found keeps calling the replicator with an EMPTY candidate list: a holder remembered from
-\* an earlier rule does not lower the shortage of a later rule - a phantom shortage that copies nothing.)
-Replicates(d) == \E k \in 1..Len(d.tasks) : Len(d.tasks[k].nodes) > 0
-Quiet(hs) == \A n \in hs : LET d == Decide27(n, hs, {}, {}) IN ~Replicates(d) /\ d.del = "none"
-NoTasks(hs) == \A n \in hs : ~Replicates(Decide27(n, hs, {}, {}))
-a\* a check "replicates" when it hands the replicator a task with at least one candidate node. (With overlapping
-\* rules the code as found keeps calling the replicator with an EMPTY candidate list: a holder remembered from
-\* an earlier rule does not lower the shortage of a later rule - a phantom shortage that copies nothing.)
-Replicates(d) == \E k \in 1..Len(d.tasks) : Len(d.tasks[k].nodes) > 0
-Quiet(hs) == \A n \in hs : LET d == Decide27(n, hs, {}, {}) IN ~Replicates(d) /\ d.del = "none"
-NoTasks(hs) == \A n \in hs : ~Replicates(Decide27(n, hs, {}, {}))
- \* a check "replicates" when it hands the replicator a task with at least one candidate node. (With overlapping
-\* rules the code as found keeps calling the replicator with an EMPTY candidate list: a holder remembered from
-\* an earlier rule does not lower the shortage of a later rule - a phantom shortage that copies nothing.)
-Replicates(d) == \E k \in 1..Len(d.tasks) : Len(d.tasks[k].nodes) > 0
-Quiet(hs) == \A n \in hs : LET d == Decide27(n, hs, {}, {}) IN ~Replicates(d) /\ d.del = "none"
-NoTasks(hs) == \A n \in hs : ~Replicates(Decide27(n, hs, {}, {}))
-c\* a check "replicates" when it hands the replicator a task with at least one candidate node. (With overlapping
-\* rules the code as found keeps calling the replicator with an EMPTY candidate list: a holder remembered from
-\* an earlier rule does not lower the shortage of a later rule - a phantom shortage that copies nothing.)
-Replicates(d) == \E k \in 1..Len(d.tasks) : Len(d.tasks[k].nodes) > 0
-Quiet(hs) == \A n \in hs : LET d == Decide27(n, hs, {}, {}) IN ~Replicates(d) /\ d.del = "none"
-NoTasks(hs) == \A n \in hs : ~Replicates(Decide27(n, hs, {}, {}))
-h\* a check "replicates" when it hands the replicator a task with at least one candidate node. (With overlapping
-\* rules the code as found keeps calling the replicator with an EMPTY candidate list: a holder remembered from
-\* an earlier rule does not lower the shortage of a later rule - a phantom shortage that copies nothing.)
-Replicates(d) == \E k \in 1..Len(d.tasks) : Len(d.tasks[k].nodes) > 0
-Quiet(hs) == \A n \in hs : LET d == Decide27(n, hs, {}, {}) IN ~Replicates(d) /\ d.del = "none"
-NoTasks(hs) == \A n \in hs : ~Replicates(Decide27(n, hs, {}, {}))
-e\* a check "replicates" when it hands the replicator a task with at least one candidate node. (With overlapping
-\* rules the code as found keeps calling the replicator with an EMPTY candidate list: a holder remembered from
-\* an earlier rule does not lower the shortage of a later rule - a phantom shortage that copies nothing.)
-Replicates(d) == \E k \in 1..Len(d.tasks) : Len(d.tasks[k].nodes) > 0
-Quiet(hs) == \A n \in hs : LET d == Decide27(n, hs, {}, {}) IN ~Replicates(d) /\ d.del = "none"
-NoTasks(hs) == \A n \in hs : ~Replicates(Decide27(n, hs, {}, {}))
-c\* a check "replicates" when it hands the replicator a task with at least one candidate node. (With overlapping
-\* rules the code as found keeps calling the replicator with an EMPTY candidate list: a holder remembered from
-\* an earlier rule does not lower the shortage of a later rule - a phantom shortage that copies nothing.)
-Replicates(d) == \E k \in 1..Len(d.tasks) : Len(d.tasks[k].nodes) > 0
-Quiet(hs) == \A n \in hs : LET d == Decide27(n, hs, {}, {}) IN ~Replicates(d) /\ d.del = "none"
-NoTasks(hs) == \A n \in hs : ~Replicates(Decide27(n, hs, {}, {}))
-k\* a check "replicates" when it hands the replicator a task with at least one candidate node. (With overlapping
-\* rules the code as found keeps calling the replicator with an EMPTY candidate list: a holder remembered from
-\* an earlier rule does not lower the shortage of a later rule - a phantom shortage that copies nothing.)
-Replicates(d) == \E k \in 1..Len(d.tasks) : Len(d.tasks[k].nodes) > 0
-Quiet(hs) == \A n \in hs : LET d == Decide27(n, hs, {}, {}) IN ~Replicates(d) /\ d.del = "none"
-NoTasks(hs) == \A n \in hs : ~Replicates(Decide27(n, hs, {}, {}))
- \* a check "replicates" when it hands the replicator a task with at least one candidate node. (With overlapping
-\* rules the code as found keeps calling the replicator with an EMPTY candidate list: a holder remembered from
-\* an earlier rule does not lower the shortage of a later rule - a phantom shortage that copies nothing.)
-Replicates(d) == \E k \in 1..Len(d.tasks) : Len(d.tasks[k].nodes) > 0
-Quiet(hs) == \A n \in hs : LET d == Decide27(n, hs, {}, {}) IN ~Replicates(d) /\ d.del = "none"
-NoTasks(hs) == \A n \in hs : ~Replicates(Decide27(n, hs, {}, {}))
-i\* a check "replicates" when it hands the replicator a task with at least one candidate node. (With overlapping
-\* rules the code as found keeps calling the replicator with an EMPTY candidate list: a holder remembered from
-\* an earlier rule does not lower the shortage of a later rule - a phantom shortage that copies nothing.)
-Replicates(d) == \E k \in 1..Len(d.tasks) : Len(d.tasks[k].nodes) > 0
-Quiet(hs) == \A n \in hs : LET d == Decide27(n, hs, {}, {}) IN ~Replicates(d) /\ d.del = "none"
-NoTasks(hs) == \A n \in hs : ~Replicates(Decide27(n, hs, {}, {}))
-s\* a check "replicates" when it hands the replicator a task with at least one candidate node. (With overlapping
-\* rules the code as found keeps calling the replicator with an EMPTY candidate list: a holder remembered from
-\* an earlier rule does not lower the shortage of a later rule - a phantom shortage that copies nothing.)
-Replicates(d) == \E k \in 1..Len(d.tasks) : Len(d.tasks[k].nodes) > 0
-Quiet(hs) == \A n \in hs : LET d == Decide27(n, hs, {}, {}) IN ~Replicates(d) /\ d.del = "none"
-NoTasks(hs) == \A n \in hs : ~Replicates(Decide27(n, hs, {}, {}))
- \* a check "replicates" when it hands the replicator a task with at least one candidate node. (With overlapping
-\* rules the code as found keeps calling the replicator with an EMPTY candidate list: a holder remembered from
-\* an earlier rule does not lower the shortage of a later rule - a phantom shortage that copies nothing.)
-Replicates(d) == \E k \in 1..Len(d.tasks) : Len(d.tasks[k].nodes) > 0
-Quiet(hs) == \A n \in hs : LET d == Decide27(n, hs, {}, {}) IN ~Replicates(d) /\ d.del = "none"
-NoTasks(hs) == \A n \in hs : ~Replicates(Decide27(n, hs, {}, {}))
-s\* a check "replicates" when it hands the replicator a task with at least one candidate node. (With overlapping
-\* rules the code as found keeps calling the replicator with an EMPTY candidate list: a holder remembered from
-\* an earlier rule does not lower the shortage of a later rule - a phantom shortage that copies nothing.)
-Replicates(d) == \E k \in 1..Len(d.tasks) : Len(d.tasks[k].nodes) > 0
-Quiet(hs) == \A n \in hs : LET d == Decide27(n, hs, {}, {}) IN ~Replicates(d) /\ d.del = "none"
-NoTasks(hs) == \A n \in hs : ~Replicates(Decide27(n, hs, {}, {}))
-y\* a check "replicates" when it hands the replicator a task with at least one candidate node. (With overlapping
-\* rules the code as found keeps calling the replicator with an EMPTY candidate list: a holder remembered from
-\* an earlier rule does not lower the shortage of a later rule - a phantom shortage that copies nothing.)
-Replicates(d) == \E k \in 1..Len(d.tasks) : Len(d.tasks[k].nodes) > 0
-Quiet(hs) == \A n \in hs : LET d == Decide27(n, hs, {}, {}) IN ~Replicates(d) /\ d.del = "none"
-NoTasks(hs) == \A n \in hs : ~Replicates(Decide27(n, hs, {}, {}))
-n\* a check "replicates" when it hands the replicator a task with at least one candidate node. (With overlapping
-\* rules the code as found keeps calling the replicator with an EMPTY candidate list: a holder remembered from
-\* an earlier rule does not lower the shortage of a later rule - a phantom shortage that copies nothing.)
-Replicates(d) == \E k \in 1..Len(d.tasks) : Len(d.tasks[k].nodes) > 0
-Quiet(hs) == \A n \in hs : LET d == Decide27(n, hs, {}, {}) IN ~Replicates(d) /\ d.del = "none"
-NoTasks(hs) == \A n \in hs : ~Replicates(Decide27(n, hs, {}, {}))
-c\* a check "replicates" when it hands the replicator a task with at least one candidate node. (With overlapping
-\* rules the code as found keeps calling the replicator with an EMPTY candidate list: a holder remembered from
-\* an earlier rule does not lower the shortage of a later rule - a phantom shortage that copies nothing.)
-Replicates(d) == \E k \in 1..Len(d.tasks) : Len(d.tasks[k].nodes) > 0
-Quiet(hs) == \A n \in hs : LET d == Decide27(n, hs, {}, {}) IN ~Replicates(d) /\ d.del = "none"
-NoTasks(hs) == \A n \in hs : ~Replicates(Decide27(n, hs, {}, {}))
-h\* a check "replicates" when it hands the replicator a task with at least one candidate node. (With overlapping
-\* rules the code as found keeps calling the replicator with an EMPTY candidate list: a holder remembered from
-\* an earlier rule does not lower the shortage of a later rule - a phantom shortage that copies nothing.)
-Replicates(d) == \E k \in 1..Len(d.tasks) : Len(d.tasks[k].nodes) > 0
-Quiet(hs) == \A n \in hs : LET d == Decide27(n, hs, {}, {}) IN ~Replicates(d) /\ d.del = "none"
-NoTasks(hs) == \A n \in hs : ~Replicates(Decide27(n, hs, {}, {}))
-r\* a check "replicates" when it hands the replicator a task with at least one candidate node. (With overlapping
-\* rules the code as found keeps calling the replicator with an EMPTY candidate list: a holder remembered from
-\* an earlier rule does not lower the shortage of a later rule - a phantom shortage that copies nothing.)
-Replicates(d) == \E k \in 1..Len(d.tasks) : Len(d.tasks[k].nodes) > 0
-Quiet(hs) == \A n \in hs : LET d == Decide27(n, hs, {}, {}) IN ~Replicates(d) /\ d.del = "none"
-NoTasks(hs) == \A n \in hs : ~Replicates(Decide27(n, hs, {}, {}))
-o\* a check "replicates" when it hands the replicator a task with at least one candidate node. (With overlapping
-\* rules the code as found keeps calling the replicator with an EMPTY candidate list: a holder remembered from
-\* an earlier rule does not lower the shortage of a later rule - a phantom shortage that copies nothing.)
-Replicates(d) == \E k \in 1..Len(d.tasks) : Len(d.tasks[k].nodes) > 0
-Quiet(hs) == \A n \in hs : LET d == Decide27(n, hs, {}, {}) IN ~Replicates(d) /\ d.del = "none"
-NoTasks(hs) == \A n \in hs : ~Replicates(Decide27(n, hs, {}, {}))
-n\* a check "replicates" when it hands the replicator a task with at least one candidate node. (With overlapping
-\* rules the code as found keeps calling the replicator with an EMPTY candidate list: a holder remembered from
-\* an earlier rule does not lower the shortage of a later rule - a phantom shortage that copies nothing.)
-Replicates(d) == \E k \in 1..Len(d.tasks) : Len(d.tasks[k].nodes) > 0
-Quiet(hs) == \A n \in hs : LET d == Decide27(n, hs, {}, {}) IN ~Replicates(d) /\ d.del = "none"
-NoTasks(hs) == \A n \in hs : ~Replicates(Decide27(n, hs, {}, {}))
-o\* a check "replicates" when it hands the replicator a task with at least one candidate node. (With overlapping
-\* rules the code as found keeps calling the replicator with an EMPTY candidate list: a holder remembered from
-\* an earlier rule does not lower the shortage of a later rule - a phantom shortage that copies nothing.)
-Replicates(d) == \E k \in 1..Len(d.tasks) : Len(d.tasks[k].nodes) > 0
-Quiet(hs) == \A n \in hs : LET d == Decide27(n, hs, {}, {}) IN ~Replicates(d) /\ d.del = "none"
-NoTasks(hs) == \A n \in hs : ~Replicates(Decide27(n, hs, {}, {}))
-u\* a check "replicates" when it hands the replicator a task with at least one candidate node. (With overlapping
-\* rules the code as found keeps calling the replicator with an EMPTY candidate list: a holder remembered from
-\* an earlier rule does not lower the shortage of a later rule - a phantom shortage that copies nothing.)
-Replicates(d) == \E k \in 1..Len(d.tasks) : Len(d.tasks[k].nodes) > 0
-Quiet(hs) == \A n \in hs : LET d == Decide27(n, hs, {}, {}) IN ~Replicates(d) /\ d.del = "none"
-NoTasks(hs) == \A n \in hs : ~Replicates(Decide27(n, hs, {}, {}))
-s\* a check "replicates" when it hands the replicator a task with at least one candidate node. (With overlapping
-\* rules the code as found keeps calling the replicator with an EMPTY candidate list: a holder remembered from
-\* an earlier rule does not lower the shortage of a later rule - a phantom shortage that copies nothing.)
-Replicates(d) == \E k \in 1..Len(d.tasks) : Len(d.tasks[k].nodes) > 0
-Quiet(hs) == \A n \in hs : LET d == Decide27(n, hs, {}, {}) IN ~Replicates(d) /\ d.del = "none"
-NoTasks(hs) == \A n \in hs : ~Replicates(Decide27(n, hs, {}, {}))
- \* a check "replicates" when it hands the replicator a task with at least one candidate node. (With overlapping
-\* rules the code as found keeps calling the replicator with an EMPTY candidate list: a holder remembered from
-\* an earlier rule does not lower the shortage of a later rule - a phantom shortage that copies nothing.)
-Replicates(d) == \E k \in 1..Len(d.tasks) : Len(d.tasks[k].nodes) > 0
-Quiet(hs) == \A n \in hs : LET d == Decide27(n, hs, {}, {}) IN ~Replicates(d) /\ d.del = "none"
-NoTasks(hs) == \A n \in hs : ~Replicates(Decide27(n, hs, {}, {}))
-i\* a check "replicates" when it hands the replicator a task with at least one candidate node. (With overlapping
-\* rules the code as found keeps calling the replicator with an EMPTY candidate list: a holder remembered from
-\* an earlier rule does not lower the shortage of a later rule - a phantom shortage that copies nothing.)
-Replicates(d) == \E k \in 1..Len(d.tasks) : Len(d.tasks[k].nodes) > 0
-Quiet(hs) == \A n \in hs : LET d == Decide27(n, hs, {}, {}) IN ~Replicates(d) /\ d.del = "none"
-NoTasks(hs) == \A n \in hs : ~Replicates(Decide27(n, hs, {}, {}))
-n\* a check "replicates" when it hands the replicator a task with at least one candidate node. (With overlapping
-\* rules the code as found keeps calling the replicator with an EMPTY candidate list: a holder remembered from
-\* an earlier rule does not lower the shortage of a later rule - a phantom shortage that copies nothing.)
-Replicates(d) == \E k \in 1..Len(d.tasks) : Len(d.tasks[k].nodes) > 0
-Quiet(hs) == \A n \in hs : LET d == Decide27(n, hs, {}, {}) IN ~Replicates(d) /\ d.del = "none"
-NoTasks(hs) == \A n \in hs : ~Replicates(Decide27(n, hs, {}, {}))
- \* a check "replicates" when it hands the replicator a task with at least one candidate node. (With overlapping
-\* rules the code as found keeps calling the replicator with an EMPTY candidate list: a holder remembered from
-\* an earlier rule does not lower the shortage of a later rule - a phantom shortage that copies nothing.)
-Replicates(d) == \E k \in 1..Len(d.tasks) : Len(d.tasks[k].nodes) > 0
-Quiet(hs) == \A n \in hs : LET d == Decide27(n, hs, {}, {}) IN ~Replicates(d) /\ d.del = "none"
-NoTasks(hs) == \A n \in hs : ~Replicates(Decide27(n, hs, {}, {}))
-t\* a check "replicates" when it hands the replicator a task with at least one candidate node. (With overlapping
-\* rules the code as found keeps calling the replicator with an EMPTY candidate list: a holder remembered from
-\* an earlier rule does not lower the shortage of a later rule - a phantom shortage that copies nothing.)
-Replicates(d) == \E k \in 1..Len(d.tasks) : Len(d.tasks[k].nodes) > 0
-Quiet(hs) == \A n \in hs : LET d == Decide27(n, hs, {}, {}) IN ~Replicates(d) /\ d.del = "none"
-NoTasks(hs) == \A n \in hs : ~Replicates(Decide27(n, hs, {}, {}))
-h\* a check "replicates" when it hands the replicator a task with at least one candidate node. (With overlapping
-\* rules the code as found keeps calling the replicator with an EMPTY candidate list: a holder remembered from
-\* an earlier rule does not lower the shortage of a later rule - a phantom shortage that copies nothing.)
-Replicates(d) == \E k \in 1..Len(d.tasks) : Len(d.tasks[k].nodes) > 0
-Quiet(hs) == \A n \in hs : LET d == Decide27(n, hs, {}, {}) IN ~Replicates(d) /\ d.del = "none"
-NoTasks(hs) == \A n \in hs : ~Replicates(Decide27(n, hs, {}, {}))
-e\* a check "replicates" when it hands the replicator a task with at least one candidate node. (With overlapping
-\* rules the code as found keeps calling the replicator with an EMPTY candidate list: a holder remembered from
-\* an earlier rule does not lower the shortage of a later rule - a phantom shortage that copies nothing.)
-Replicates(d) == \E k \in 1..Len(d.tasks) : Len(d.tasks[k].nodes) > 0
-Quiet(hs) == \A n \in hs : LET d == Decide27(n, hs, {}, {}) IN ~Replicates(d) /\ d.del = "none"
-NoTasks(hs) == \A n \in hs : ~Replicates(Decide27(n, hs, {}, {}))
- \* a check "replicates" when it hands the replicator a task with at least one candidate node. (With overlapping
-\* rules the code as found keeps calling the replicator with an EMPTY candidate list: a holder remembered from
-\* an earlier rule does not lower the shortage of a later rule - a phantom shortage that copies nothing.)
-Replicates(d) == \E k \in 1..Len(d.tasks) : Len(d.tasks[k].nodes) > 0
-Quiet(hs) == \A n \in hs : LET d == Decide27(n, hs, {}, {}) IN ~Replicates(d) /\ d.del = "none"
-NoTasks(hs) == \A n \in hs : ~Replicates(Decide27(n, hs, {}, {}))
-c\* a check "replicates" when it hands the replicator a task with at least one candidate node. (With overlapping
-\* rules the code as found keeps calling the replicator with an EMPTY candidate list: a holder remembered from
-\* an earlier rule does not lower the shortage of a later rule - a phantom shortage that copies nothing.)
-Replicates(d) == \E k \in 1..Len(d.tasks) : Len(d.tasks[k].nodes) > 0
-Quiet(hs) == \A n \in hs : LET d == Decide27(n, hs, {}, {}) IN ~Replicates(d) /\ d.del = "none"
-NoTasks(hs) == \A n \in hs : ~Replicates(Decide27(n, hs, {}, {}))
-o\* a check "replicates" when it hands the replicator a task with at least one candidate node. (With overlapping
-\* rules the code as found keeps calling the replicator with an EMPTY candidate list: a holder remembered from
-\* an earlier rule does not lower the shortage of a later rule - a phantom shortage that copies nothing.)
-Replicates(d) == \E k \in 1..Len(d.tasks) : Len(d.tasks[k].nodes) > 0
-Quiet(hs) == \A n \in hs : LET d == Decide27(n, hs, {}, {}) IN ~Replicates(d) /\ d.del = "none"
-NoTasks(hs) == \A n \in hs : ~Replicates(Decide27(n, hs, {}, {}))
-d\* a check "replicates" when it hands the replicator a task with at least one candidate node. (With overlapping
-\* rules the code as found keeps calling the replicator with an EMPTY candidate list: a holder remembered from
-\* an earlier rule does not lower the shortage of a later rule - a phantom shortage that copies nothing.)
-Replicates(d) == \E k \in 1..Len(d.tasks) : Len(d.tasks[k].nodes) > 0
-Quiet(hs) == \A n \in hs : LET d == Decide27(n, hs, {}, {}) IN ~Replicates(d) /\ d.del = "none"
-NoTasks(hs) == \A n \in hs : ~Replicates(Decide27(n, hs, {}, {}))
-e\* a check "replicates" when it hands the replicator a task with at least one candidate node. (With overlapping
-\* rules the code as found keeps calling the replicator with an EMPTY candidate list: a holder remembered from
-\* an earlier rule does not lower the shortage of a later rule - a phantom shortage that copies nothing.)
-Replicates(d) == \E k \in 1..Len(d.tasks) : Len(d.tasks[k].nodes) > 0
-Quiet(hs) == \A n \in hs : LET d == Decide27(n, hs, {}, {}) IN ~Replicates(d) /\ d.del = "none"
-NoTasks(hs) == \A n \in hs : ~Replicates(Decide27(n, hs, {}, {}))
- \* a check "replicates" when it hands the replicator a task with at least one candidate node. (With overlapping
-\* rules the code as found keeps calling the replicator with an EMPTY candidate list: a holder remembered from
-\* an earlier rule does not lower the shortage of a later rule - a phantom shortage that copies nothing.)
-Replicates(d) == \E k \in 1..Len(d.tasks) : Len(d.tasks[k].nodes) > 0
-Quiet(hs) == \A n \in hs : LET d == Decide27(n, hs, {}, {}) IN ~Replicates(d) /\ d.del = "none"
-NoTasks(hs) == \A n \in hs : ~Replicates(Decide27(n, hs, {}, {}))
-(\* a check "replicates" when it hands the replicator a task with at least one candidate node. (With overlapping
-\* rules the code as found keeps calling the replicator with an EMPTY candidate list: a holder remembered from
-\* an earlier rule does not lower the shortage of a later rule - a phantom shortage that copies nothing.)
-Replicates(d) == \E k \in 1..Len(d.tasks) : Len(d.tasks[k].nodes) > 0
-Quiet(hs) == \A n \in hs : LET d == Decide27(n, hs, {}, {}) IN ~Replicates(d) /\ d.del = "none"
-NoTasks(hs) == \A n \in hs : ~Replicates(Decide27(n, hs, {}, {}))
-H\* a check "replicates" when it hands the replicator a task with at least one candidate node. (With overlapping
-\* rules the code as found keeps calling the replicator with an EMPTY candidate list: a holder remembered from
-\* an earlier rule does not lower the shortage of a later rule - a phantom shortage that copies nothing.)
-Replicates(d) == \E k \in 1..Len(d.tasks) : Len(d.tasks[k].nodes) > 0
-Quiet(hs) == \A n \in hs : LET d == Decide27(n, hs, {}, {}) IN ~Replicates(d) /\ d.del = "none"
-NoTasks(hs) == \A n \in hs : ~Replicates(Decide27(n, hs, {}, {}))
-a\* a check "replicates" when it hands the replicator a task with at least one candidate node. (With overlapping
-\* rules the code as found keeps calling the replicator with an EMPTY candidate list: a holder remembered from
-\* an earlier rule does not lower the shortage of a later rule - a phantom shortage that copies nothing.)
-Replicates(d) == \E k \in 1..Len(d.tasks) : Len(d.tasks[k].nodes) > 0
-Quiet(hs) == \A n \in hs : LET d == Decide27(n, hs, {}, {}) IN ~Replicates(d) /\ d.del = "none"
-NoTasks(hs) == \A n \in hs : ~Replicates(Decide27(n, hs, {}, {}))
-n\* a check "replicates" when it hands the replicator a task with at least one candidate node. (With overlapping
-\* rules the code as found keeps calling the replicator with an EMPTY candidate list: a holder remembered from
-\* an earlier rule does not lower the shortage of a later rule - a phantom shortage that copies nothing.)
-Replicates(d) == \E k \in 1..Len(d.tasks) : Len(d.tasks[k].nodes) > 0
-Quiet(hs) == \A n \in hs : LET d == Decide27(n, hs, {}, {}) IN ~Replicates(d) /\ d.del = "none"
-NoTasks(hs) == \A n \in hs : ~Replicates(Decide27(n, hs, {}, {}))
-d\* a check "replicates" when it hands the replicator a task with at least one candidate node. (With overlapping
-\* rules the code as found keeps calling the replicator with an EMPTY candidate list: a holder remembered from
-\* an earlier rule does not lower the shortage of a later rule - a phantom shortage that copies nothing.)
-Replicates(d) == \E k \in 1..Len(d.tasks) : Len(d.tasks[k].nodes) > 0
-Quiet(hs) == \A n \in hs : LET d == Decide27(n, hs, {}, {}) IN ~Replicates(d) /\ d.del = "none"
-NoTasks(hs) == \A n \in hs : ~Replicates(Decide27(n, hs, {}, {}))
-l\* a check "replicates" when it hands the replicator a task with at least one candidate node. (With overlapping
-\* rules the code as found keeps calling the replicator with an EMPTY candidate list: a holder remembered from
-\* an earlier rule does not lower the shortage of a later rule - a phantom shortage that copies nothing.)
-Replicates(d) == \E k \in 1..Len(d.tasks) : Len(d.tasks[k].nodes) > 0
-Quiet(hs) == \A n \in hs : LET d == Decide27(n, hs, {}, {}) IN ~Replicates(d) /\ d.del = "none"
-NoTasks(hs) == \A n \in hs : ~Replicates(Decide27(n, hs, {}, {}))
-e\* a check "replicates" when it hands the replicator a task with at least one candidate node. (With overlapping
-\* rules the code as found keeps calling the replicator with an EMPTY candidate list: a holder remembered from
-\* an earlier rule does not lower the shortage of a later rule - a phantom shortage that copies nothing.)
-Replicates(d) == \E k \in 1..Len(d.tasks) : Len(d.tasks[k].nodes) > 0
-Quiet(hs) == \A n \in hs : LET d == Decide27(n, hs, {}, {}) IN ~Replicates(d) /\ d.del = "none"
-NoTasks(hs) == \A n \in hs : ~Replicates(Decide27(n, hs, {}, {}))
-T\* a check "replicates" when it hands the replicator a task with at least one candidate node. (With overlapping
-\* rules the code as found keeps calling the replicator with an EMPTY candidate list: a holder remembered from
-\* an earlier rule does not lower the shortage of a later rule - a phantom shortage that copies nothing.)
-Replicates(d) == \E k \in 1..Len(d.tasks) : Len(d.tasks[k].nodes) > 0
-Quiet(hs) == \A n \in hs : LET d == Decide27(n, hs, {}, {}) IN ~Replicates(d) /\ d.del = "none"
-NoTasks(hs) == \A n \in hs : ~Replicates(Decide27(n, hs, {}, {}))
-a\* a check "replicates" when it hands the replicator a task with at least one candidate node. (With overlapping
-\* rules the code as found keeps calling the replicator with an EMPTY candidate list: a holder remembered from
-\* an earlier rule does not lower the shortage of a later rule - a phantom shortage that copies nothing.)
-Replicates(d) == \E k \in 1..Len(d.tasks) : Len(d.tasks[k].nodes) > 0
-Quiet(hs) == \A n \in hs : LET d == Decide27(n, hs, {}, {}) IN ~Replicates(d) /\ d.del = "none"
-NoTasks(hs) == \A n \in hs : ~Replicates(Decide27(n, hs, {}, {}))
-s\* a check "replicates" when it hands the replicator a task with at least one candidate node. (With overlapping
-\* rules the code as found keeps calling the replicator with an EMPTY candidate list: a holder remembered from
-\* an earlier rule does not lower the shortage of a later rule - a phantom shortage that copies nothing.)
-Replicates(d) == \E k \in 1..Len(d.tasks) : Len(d.tasks[k].nodes) > 0
-Quiet(hs) == \A n \in hs : LET d == Decide27(n, hs, {}, {}) IN ~Replicates(d) /\ d.del = "none"
-NoTasks(hs) == \A n \in hs : ~Replicates(Decide27(n, hs, {}, {}))
-k\* a check "replicates" when it hands the replicator a task with at least one candidate node. (With overlapping
-\* rules the code as found keeps calling the replicator with an EMPTY candidate list: a holder remembered from
-\* an earlier rule does not lower the shortage of a later rule - a phantom shortage that copies nothing.)
-Replicates(d) == \E k \in 1..Len(d.tasks) : Len(d.tasks[k].nodes) > 0
-Quiet(hs) == \A n \in hs : LET d == Decide27(n, hs, {}, {}) IN ~Replicates(d) /\ d.del = "none"
-NoTasks(hs) == \A n \in hs : ~Replicates(Decide27(n, hs, {}, {}))
- \* a check "replicates" when it hands the replicator a task with at least one candidate node. (With overlapping
-\* rules the code as found keeps calling the replicator with an EMPTY candidate list: a holder remembered from
-\* an earlier rule does not lower the shortage of a later rule - a phantom shortage that copies nothing.)
-Replicates(d) == \E k \in 1..Len(d.tasks) : Len(d.tasks[k].nodes) > 0
-Quiet(hs) == \A n \in hs : LET d == Decide27(n, hs, {}, {}) IN ~Replicates(d) /\ d.del = "none"
-NoTasks(hs) == \A n \in hs : ~Replicates(Decide27(n, hs, {}, {}))
-r\* a check "replicates" when it hands the replicator a task with at least one candidate node. (With overlapping
-\* rules the code as found keeps calling the replicator with an EMPTY candidate list: a holder remembered from
-\* an earlier rule does not lower the shortage of a later rule - a phantom shortage that copies nothing.)
-Replicates(d) == \E k \in 1..Len(d.tasks) : Len(d.tasks[k].nodes) > 0
-Quiet(hs) == \A n \in hs : LET d == Decide27(n, hs, {}, {}) IN ~Replicates(d) /\ d.del = "none"
-NoTasks(hs) == \A n \in hs : ~Replicates(Decide27(n, hs, {}, {}))
-u\* a check "replicates" when it hands the replicator a task with at least one candidate node. (With overlapping
-\* rules the code as found keeps calling the replicator with an EMPTY candidate list: a holder remembered from
-\* an earlier rule does not lower the shortage of a later rule - a phantom shortage that copies nothing.)
-Replicates(d) == \E k \in 1..Len(d.tasks) : Len(d.tasks[k].nodes) > 0
-Quiet(hs) == \A n \in hs : LET d == Decide27(n, hs, {}, {}) IN ~Replicates(d) /\ d.del = "none"
-NoTasks(hs) == \A n \in hs : ~Replicates(Decide27(n, hs, {}, {}))
-n\* a check "replicates" when it hands the replicator a task with at least one candidate node. (With overlapping
-\* rules the code as found keeps calling the replicator with an EMPTY candidate list: a holder remembered from
-\* an earlier rule does not lower the shortage of a later rule - a phantom shortage that copies nothing.)
-Replicates(d) == \E k \in 1..Len(d.tasks) : Len(d.tasks[k].nodes) > 0
-Quiet(hs) == \A n \in hs : LET d == Decide27(n, hs, {}, {}) IN ~Replicates(d) /\ d.del = "none"
-NoTasks(hs) == \A n \in hs : ~Replicates(Decide27(n, hs, {}, {}))
-s\* a check "replicates" when it hands the replicator a task with at least one candidate node. (With overlapping
-\* rules the code as found keeps calling the replicator with an EMPTY candidate list: a holder remembered from
-\* an earlier rule does not lower the shortage of a later rule - a phantom shortage that copies nothing.)
-Replicates(d) == \E k \in 1..Len(d.tasks) : Len(d.tasks[k].nodes) > 0
-Quiet(hs) == \A n \in hs : LET d == Decide27(n, hs, {}, {}) IN ~Replicates(d) /\ d.del = "none"
-NoTasks(hs) == \A n \in hs : ~Replicates(Decide27(n, hs, {}, {}))
- \* a check "replicates" when it hands the replicator a task with at least one candidate node. (With overlapping
-\* rules the code as found keeps calling the replicator with an EMPTY candidate list: a holder remembered from
-\* an earlier rule does not lower the shortage of a later rule - a phantom shortage that copies nothing.)
-Replicates(d) == \E k \in 1..Len(d.tasks) : Len(d.tasks[k].nodes) > 0
-Quiet(hs) == \A n \in hs : LET d == Decide27(n, hs, {}, {}) IN ~Replicates(d) /\ d.del = "none"
-NoTasks(hs) == \A n \in hs : ~Replicates(Decide27(n, hs, {}, {}))
-i\* a check "replicates" when it hands the replicator a task with at least one candidate node. (With overlapping
-\* rules the code as found keeps calling the replicator with an EMPTY candidate list: a holder remembered from
-\* an earlier rule does not lower the shortage of a later rule - a phantom shortage that copies nothing.)
-Replicates(d) == \E k \in 1..Len(d.tasks) : Len(d.tasks[k].nodes) > 0
-Quiet(hs) == \A n \in hs : LET d == Decide27(n, hs, {}, {}) IN ~Replicates(d) /\ d.del = "none"
-NoTasks(hs) == \A n \in hs : ~Replicates(Decide27(n, hs, {}, {}))
-n\* a check "replicates" when it hands the replicator a task with at least one candidate node. (With overlapping
-\* rules the code as found keeps calling the replicator with an EMPTY candidate list: a holder remembered from
-\* an earlier rule does not lower the shortage of a later rule - a phantom shortage that copies nothing.)
-Replicates(d) == \E k \in 1..Len(d.tasks) : Len(d.tasks[k].nodes) > 0
-Quiet(hs) == \A n \in hs : LET d == Decide27(n, hs, {}, {}) IN ~Replicates(d) /\ d.del = "none"
-NoTasks(hs) == \A n \in hs : ~Replicates(Decide27(n, hs, {}, {}))
- \* a check "replicates" when it hands the replicator a task with at least one candidate node. (With overlapping
-\* rules the code as found keeps calling the replicator with an EMPTY candidate list: a holder remembered from
-\* an earlier rule does not lower the shortage of a later rule - a phantom shortage that copies nothing.)
-Replicates(d) == \E k \in 1..Len(d.tasks) : Len(d.tasks[k].nodes) > 0
-Quiet(hs) == \A n \in hs : LET d == Decide27(n, hs, {}, {}) IN ~Replicates(d) /\ d.del = "none"
-NoTasks(hs) == \A n \in hs : ~Replicates(Decide27(n, hs, {}, {}))
-t\* a check "replicates" when it hands the replicator a task with at least one candidate node. (With overlapping
-\* rules the code as found keeps calling the replicator with an EMPTY candidate list: a holder remembered from
-\* an earlier rule does not lower the shortage of a later rule - a phantom shortage that copies nothing.)
-Replicates(d) == \E k \in 1..Len(d.tasks) : Len(d.tasks[k].nodes) > 0
-Quiet(hs) == \A n \in hs : LET d == Decide27(n, hs, {}, {}) IN ~Replicates(d) /\ d.del = "none"
-NoTasks(hs) == \A n \in hs : ~Replicates(Decide27(n, hs, {}, {}))
-h\* a check "replicates" when it hands the replicator a task with at least one candidate node. (With overlapping
-\* rules the code as found keeps calling the replicator with an EMPTY candidate list: a holder remembered from
-\* an earlier rule does not lower the shortage of a later rule - a phantom shortage that copies nothing.)
-Replicates(d) == \E k \in 1..Len(d.tasks) : Len(d.tasks[k].nodes) > 0
-Quiet(hs) == \A n \in hs : LET d == Decide27(n, hs, {}, {}) IN ~Replicates(d) /\ d.del = "none"
-NoTasks(hs) == \A n \in hs : ~Replicates(Decide27(n, hs, {}, {}))
-e\* a check "replicates" when it hands the replicator a task with at least one candidate node. (With overlapping
-\* rules the code as found keeps calling the replicator with an EMPTY candidate list: a holder remembered from
-\* an earlier rule does not lower the shortage of a later rule - a phantom shortage that copies nothing.)
-Replicates(d) == \E k \in 1..Len(d.tasks) : Len(d.tasks[k].nodes) > 0
-Quiet(hs) == \A n \in hs : LET d == Decide27(n, hs, {}, {}) IN ~Replicates(d) /\ d.del = "none"
-NoTasks(hs) == \A n \in hs : ~Replicates(Decide27(n, hs, {}, {}))
- \* a check "replicates" when it hands the replicator a task with at least one candidate node. (With overlapping
-\* rules the code as found keeps calling the replicator with an EMPTY candidate list: a holder remembered from
-\* an earlier rule does not lower the shortage of a later rule - a phantom shortage that copies nothing.)
-Replicates(d) == \E k \in 1..Len(d.tasks) : Len(d.tasks[k].nodes) > 0
-Quiet(hs) == \A n \in hs : LET d == Decide27(n, hs, {}, {}) IN ~Replicates(d) /\ d.del = "none"
-NoTasks(hs) == \A n \in hs : ~Replicates(Decide27(n, hs, {}, {}))
-c\* a check "replicates" when it hands the replicator a task with at least one candidate node. (With overlapping
-\* rules the code as found keeps calling the replicator with an EMPTY candidate list: a holder remembered from
-\* an earlier rule does not lower the shortage of a later rule - a phantom shortage that copies nothing.)
-Replicates(d) == \E k \in 1..Len(d.tasks) : Len(d.tasks[k].nodes) > 0
-Quiet(hs) == \A n \in hs : LET d == Decide27(n, hs, {}, {}) IN ~Replicates(d) /\ d.del = "none"
-NoTasks(hs) == \A n \in hs : ~Replicates(Decide27(n, hs, {}, {}))
-a\* a check "replicates" when it hands the replicator a task with at least one candidate node. (With overlapping
-\* rules the code as found keeps calling the replicator with an EMPTY candidate list: a holder remembered from
-\* an earlier rule does not lower the shortage of a later rule - a phantom shortage that copies nothing.)
-Replicates(d) == \E k \in 1..Len(d.tasks) : Len(d.tasks[k].nodes) > 0
-Quiet(hs) == \A n \in hs : LET d == Decide27(n, hs, {}, {}) IN ~Replicates(d) /\ d.del = "none"
-NoTasks(hs) == \A n \in hs : ~Replicates(Decide27(n, hs, {}, {}))
-l\* a check "replicates" when it hands the replicator a task with at least one candidate node. (With overlapping
-\* rules the code as found keeps calling the replicator with an EMPTY candidate list: a holder remembered from
-\* an earlier rule does not lower the shortage of a later rule - a phantom shortage that copies nothing.)
-Replicates(d) == \E k \in 1..Len(d.tasks) : Len(d.tasks[k].nodes) > 0
-Quiet(hs) == \A n \in hs : LET d == Decide27(n, hs, {}, {}) IN ~Replicates(d) /\ d.del = "none"
-NoTasks(hs) == \A n \in hs : ~Replicates(Decide27(n, hs, {}, {}))
-l\* a check "replicates" when it hands the replicator a task with at least one candidate node. (With overlapping
-\* rules the code as found keeps calling the replicator with an EMPTY candidate list: a holder remembered from
-\* an earlier rule does not lower the shortage of a later rule - a phantom shortage that copies nothing.)
-Replicates(d) == \E k \in 1..Len(d.tasks) : Len(d.tasks[k].nodes) > 0
-Quiet(hs) == \A n \in hs : LET d == Decide27(n, hs, {}, {}) IN ~Replicates(d) /\ d.del = "none"
-NoTasks(hs) == \A n \in hs : ~Replicates(Decide27(n, hs, {}, {}))
-i\* a check "replicates" when it hands the replicator a task with at least one candidate node. (With overlapping
-\* rules the code as found keeps calling the replicator with an EMPTY candidate list: a holder remembered from
-\* an earlier rule does not lower the shortage of a later rule - a phantom shortage that copies nothing.)
-Replicates(d) == \E k \in 1..Len(d.tasks) : Len(d.tasks[k].nodes) > 0
-Quiet(hs) == \A n \in hs : LET d == Decide27(n, hs, {}, {}) IN ~Replicates(d) /\ d.del = "none"
-NoTasks(hs) == \A n \in hs : ~Replicates(Decide27(n, hs, {}, {}))
-n\* a check "replicates" when it hands the replicator a task with at least one candidate node. (With overlapping
-\* rules the code as found keeps calling the replicator with an EMPTY candidate list: a holder remembered from
-\* an earlier rule does not lower the shortage of a later rule - a phantom shortage that copies nothing.)
-Replicates(d) == \E k \in 1..Len(d.tasks) : Len(d.tasks[k].nodes) > 0
-Quiet(hs) == \A n \in hs : LET d == Decide27(n, hs, {}, {}) IN ~Replicates(d) /\ d.del = "none"
-NoTasks(hs) == \A n \in hs : ~Replicates(Decide27(n, hs, {}, {}))
-g\* a check "replicates" when it hands the replicator a task with at least one candidate node. (With overlapping
-\* rules the code as found keeps calling the replicator with an EMPTY candidate list: a holder remembered from
-\* an earlier rule does not lower the shortage of a later rule - a phantom shortage that copies nothing.)
-Replicates(d) == \E k \in 1..Len(d.tasks) : Len(d.tasks[k].nodes) > 0
-Quiet(hs) == \A n \in hs : LET d == Decide27(n, hs, {}, {}) IN ~Replicates(d) /\ d.del = "none"
-NoTasks(hs) == \A n \in hs : ~Replicates(Decide27(n, hs, {}, {}))
-
-\* a check "replicates" when it hands the replicator a task with at least one candidate node. (With overlapping
-\* rules the code as found keeps calling the replicator with an EMPTY candidate list: a holder remembered from
-\* an earlier rule does not lower the shortage of a later rule - a phantom shortage that copies nothing.)
-Replicates(d) == \E k \in 1..Len(d.tasks) : Len(d.tasks[k].nodes) > 0
-Quiet(hs) == \A n \in hs : LET d == Decide27(n, hs, {}, {}) IN ~Replicates(d) /\ d.del = "none"
-NoTasks(hs) == \A n \in hs : ~Replicates(Decide27(n, hs, {}, {}))
- \* a check "replicates" when it hands the replicator a task with at least one candidate node. (With overlapping
-\* rules the code as found keeps calling the replicator with an EMPTY candidate list: a holder remembered from
-\* an earlier rule does not lower the shortage of a later rule - a phantom shortage that copies nothing.)
-Replicates(d) == \E k \in 1..Len(d.tasks) : Len(d.tasks[k].nodes) > 0
-Quiet(hs) == \A n \in hs : LET d == Decide27(n, hs, {}, {}) IN ~Replicates(d) /\ d.del = "none"
-NoTasks(hs) == \A n \in hs : ~Replicates(Decide27(n, hs, {}, {}))
- \* a check "replicates" when it hands the replicator a task with at least one candidate node. (With overlapping
-\* rules the code as found keeps calling the replicator with an EMPTY candidate list: a holder remembered from
-\* an earlier rule does not lower the shortage of a later rule - a phantom shortage that copies nothing.)
-Replicates(d) == \E k \in 1..Len(d.tasks) : Len(d.tasks[k].nodes) > 0
-Quiet(hs) == \A n \in hs : LET d == Decide27(n, hs, {}, {}) IN ~Replicates(d) /\ d.del = "none"
-NoTasks(hs) == \A n \in hs : ~Replicates(Decide27(n, hs, {}, {}))
- \* a check "replicates" when it hands the replicator a task with at least one candidate node. (With overlapping
-\* rules the code as found keeps calling the replicator with an EMPTY candidate list: a holder remembered from
-\* an earlier rule does not lower the shortage of a later rule - a phantom shortage that copies nothing.)
-Replicates(d) == \E k \in 1..Len(d.tasks) : Len(d.tasks[k].nodes) > 0
-Quiet(hs) == \A n \in hs : LET d == Decide27(n, hs, {}, {}) IN ~Replicates(d) /\ d.del = "none"
-NoTasks(hs) == \A n \in hs : ~Replicates(Decide27(n, hs, {}, {}))
-g\* a check "replicates" when it hands the replicator a task with at least one candidate node. (With overlapping
-\* rules the code as found keeps calling the replicator with an EMPTY candidate list: a holder remembered from
-\* an earlier rule does not lower the shortage of a later rule - a phantom shortage that copies nothing.)
-Replicates(d) == \E k \in 1..Len(d.tasks) : Len(d.tasks[k].nodes) > 0
-Quiet(hs) == \A n \in hs : LET d == Decide27(n, hs, {}, {}) IN ~Replicates(d) /\ d.del = "none"
-NoTasks(hs) == \A n \in hs : ~Replicates(Decide27(n, hs, {}, {}))
-o\* a check "replicates" when it hands the replicator a task with at least one candidate node. (With overlapping
-\* rules the code as found keeps calling the replicator with an EMPTY candidate list: a holder remembered from
-\* an earlier rule does not lower the shortage of a later rule - a phantom shortage that copies nothing.)
-Replicates(d) == \E k \in 1..Len(d.tasks) : Len(d.tasks[k].nodes) > 0
-Quiet(hs) == \A n \in hs : LET d == Decide27(n, hs, {}, {}) IN ~Replicates(d) /\ d.del = "none"
-NoTasks(hs) == \A n \in hs : ~Replicates(Decide27(n, hs, {}, {}))
-r\* a check "replicates" when it hands the replicator a task with at least one candidate node. (With overlapping
-\* rules the code as found keeps calling the replicator with an EMPTY candidate list: a holder remembered from
-\* an earlier rule does not lower the shortage of a later rule - a phantom shortage that copies nothing.)
-Replicates(d) == \E k \in 1..Len(d.tasks) : Len(d.tasks[k].nodes) > 0
-Quiet(hs) == \A n \in hs : LET d == Decide27(n, hs, {}, {}) IN ~Replicates(d) /\ d.del = "none"
-NoTasks(hs) == \A n \in hs : ~Replicates(Decide27(n, hs, {}, {}))
-o\* a check "replicates" when it hands the replicator a task with at least one candidate node. (With overlapping
-\* rules the code as found keeps calling the replicator with an EMPTY candidate list: a holder remembered from
-\* an earlier rule does not lower the shortage of a later rule - a phantom shortage that copies nothing.)
-Replicates(d) == \E k \in 1..Len(d.tasks) : Len(d.tasks[k].nodes) > 0
-Quiet(hs) == \A n \in hs : LET d == Decide27(n, hs, {}, {}) IN ~Replicates(d) /\ d.del = "none"
-NoTasks(hs) == \A n \in hs : ~Replicates(Decide27(n, hs, {}, {}))
-u\* a check "replicates" when it hands the replicator a task with at least one candidate node. (With overlapping
-\* rules the code as found keeps calling the replicator with an EMPTY candidate list: a holder remembered from
-\* an earlier rule does not lower the shortage of a later rule - a phantom shortage that copies nothing.)
-Replicates(d) == \E k \in 1..Len(d.tasks) : Len(d.tasks[k].nodes) > 0
-Quiet(hs) == \A n \in hs : LET d == Decide27(n, hs, {}, {}) IN ~Replicates(d) /\ d.del = "none"
-NoTasks(hs) == \A n \in hs : ~Replicates(Decide27(n, hs, {}, {}))
-t\* a check "replicates" when it hands the replicator a task with at least one candidate node. (With overlapping
-\* rules the code as found keeps calling the replicator with an EMPTY candidate list: a holder remembered from
-\* an earlier rule does not lower the shortage of a later rule - a phantom shortage that copies nothing.)
-Replicates(d) == \E k \in 1..Len(d.tasks) : Len(d.tasks[k].nodes) > 0
-Quiet(hs) == \A n \in hs : LET d == Decide27(n, hs, {}, {}) IN ~Replicates(d) /\ d.del = "none"
-NoTasks(hs) == \A n \in hs : ~Replicates(Decide27(n, hs, {}, {}))
-i\* a check "replicates" when it hands the replicator a task with at least one candidate node. (With overlapping
-\* rules the code as found keeps calling the replicator with an EMPTY candidate list: a holder remembered from
-\* an earlier rule does not lower the shortage of a later rule - a phantom shortage that copies nothing.)
-Replicates(d) == \E k \in 1..Len(d.tasks) : Len(d.tasks[k].nodes) > 0
-Quiet(hs) == \A n \in hs : LET d == Decide27(n, hs, {}, {}) IN ~Replicates(d) /\ d.del = "none"
-NoTasks(hs) == \A n \in hs : ~Replicates(Decide27(n, hs, {}, {}))
-n\* a check "replicates" when it hands the replicator a task with at least one candidate node. (With overlapping
-\* rules the code as found keeps calling the replicator with an EMPTY candidate list: a holder remembered from
-\* an earlier rule does not lower the shortage of a later rule - a phantom shortage that copies nothing.)
-Replicates(d) == \E k \in 1..Len(d.tasks) : Len(d.tasks[k].nodes) > 0
-Quiet(hs) == \A n \in hs : LET d == Decide27(n, hs, {}, {}) IN ~Replicates(d) /\ d.del = "none"
-NoTasks(hs) == \A n \in hs : ~Replicates(Decide27(n, hs, {}, {}))
-e\* a check "replicates" when it hands the replicator a task with at least one candidate node. (With overlapping
-\* rules the code as found keeps calling the replicator with an EMPTY candidate list: a holder remembered from
-\* an earlier rule does not lower the shortage of a later rule - a phantom shortage that copies nothing.)
-Replicates(d) == \E k \in 1..Len(d.tasks) : Len(d.tasks[k].nodes) > 0
-Quiet(hs) == \A n \in hs : LET d == Decide27(n, hs, {}, {}) IN ~Replicates(d) /\ d.del = "none"
-NoTasks(hs) == \A n \in hs : ~Replicates(Decide27(n, hs, {}, {}))
-)\* a check "replicates" when it hands the replicator a task with at least one candidate node. (With overlapping
-\* rules the code as found keeps calling the replicator with an EMPTY candidate list: a holder remembered from
-\* an earlier rule does not lower the shortage of a later rule - a phantom shortage that copies nothing.)
-Replicates(d) == \E k \in 1..Len(d.tasks) : Len(d.tasks[k].nodes) > 0
-Quiet(hs) == \A n \in hs : LET d == Decide27(n, hs, {}, {}) IN ~Replicates(d) /\ d.del = "none"
-NoTasks(hs) == \A n \in hs : ~Replicates(Decide27(n, hs, {}, {}))
-,\* a check "replicates" when it hands the replicator a task with at least one candidate node. (With overlapping
-\* rules the code as found keeps calling the replicator with an EMPTY candidate list: a holder remembered from
-\* an earlier rule does not lower the shortage of a later rule - a phantom shortage that copies nothing.)
-Replicates(d) == \E k \in 1..Len(d.tasks) : Len(d.tasks[k].nodes) > 0
-Quiet(hs) == \A n \in hs : LET d == Decide27(n, hs, {}, {}) IN ~Replicates(d) /\ d.del = "none"
-NoTasks(hs) == \A n \in hs : ~Replicates(Decide27(n, hs, {}, {}))
- \* a check "replicates" when it hands the replicator a task with at least one candidate node. (With overlapping
-\* rules the code as found keeps calling the replicator with an EMPTY candidate list: a holder remembered from
-\* an earlier rule does not lower the shortage of a later rule - a phantom shortage that copies nothing.)
-Replicates(d) == \E k \in 1..Len(d.tasks) : Len(d.tasks[k].nodes) > 0
-Quiet(hs) == \A n \in hs : LET d == Decide27(n, hs, {}, {}) IN ~Replicates(d) /\ d.del = "none"
-NoTasks(hs) == \A n \in hs : ~Replicates(Decide27(n, hs, {}, {}))
-s\* a check "replicates" when it hands the replicator a task with at least one candidate node. (With overlapping
-\* rules the code as found keeps calling the replicator with an EMPTY candidate list: a holder remembered from
-\* an earlier rule does not lower the shortage of a later rule - a phantom shortage that copies nothing.)
-Replicates(d) == \E k \in 1..Len(d.tasks) : Len(d.tasks[k].nodes) > 0
-Quiet(hs) == \A n \in hs : LET d == Decide27(n, hs, {}, {}) IN ~Replicates(d) /\ d.del = "none"
-NoTasks(hs) == \A n \in hs : ~Replicates(Decide27(n, hs, {}, {}))
-o\* a check "replicates" when it hands the replicator a task with at least one candidate node. (With overlapping
-\* rules the code as found keeps calling the replicator with an EMPTY candidate list: a holder remembered from
-\* an earlier rule does not lower the shortage of a later rule - a phantom shortage that copies nothing.)
-Replicates(d) == \E k \in 1..Len(d.tasks) : Len(d.tasks[k].nodes) > 0
-Quiet(hs) == \A n \in hs : LET d == Decide27(n, hs, {}, {}) IN ~Replicates(d) /\ d.del = "none"
-NoTasks(hs) == \A n \in hs : ~Replicates(Decide27(n, hs, {}, {}))
- \* a check "replicates" when it hands the replicator a task with at least one candidate node. (With overlapping
-\* rules the code as found keeps calling the replicator with an EMPTY candidate list: a holder remembered from
-\* an earlier rule does not lower the shortage of a later rule - a phantom shortage that copies nothing.)
-Replicates(d) == \E k \in 1..Len(d.tasks) : Len(d.tasks[k].nodes) > 0
-Quiet(hs) == \A n \in hs : LET d == Decide27(n, hs, {}, {}) IN ~Replicates(d) /\ d.del = "none"
-NoTasks(hs) == \A n \in hs : ~Replicates(Decide27(n, hs, {}, {}))
-a\* a check "replicates" when it hands the replicator a task with at least one candidate node. (With overlapping
-\* rules the code as found keeps calling the replicator with an EMPTY candidate list: a holder remembered from
-\* an earlier rule does not lower the shortage of a later rule - a phantom shortage that copies nothing.)
-Replicates(d) == \E k \in 1..Len(d.tasks) : Len(d.tasks[k].nodes) > 0
-Quiet(hs) == \A n \in hs : LET d == Decide27(n, hs, {}, {}) IN ~Replicates(d) /\ d.del = "none"
-NoTasks(hs) == \A n \in hs : ~Replicates(Decide27(n, hs, {}, {}))
- \* a check "replicates" when it hands the replicator a task with at least one candidate node. (With overlapping
-\* rules the code as found keeps calling the replicator with an EMPTY candidate list: a holder remembered from
-\* an earlier rule does not lower the shortage of a later rule - a phantom shortage that copies nothing.)
-Replicates(d) == \E k \in 1..Len(d.tasks) : Len(d.tasks[k].nodes) > 0
-Quiet(hs) == \A n \in hs : LET d == Decide27(n, hs, {}, {}) IN ~Replicates(d) /\ d.del = "none"
-NoTasks(hs) == \A n \in hs : ~Replicates(Decide27(n, hs, {}, {}))
-c\* a check "replicates" when it hands the replicator a task with at least one candidate node. (With overlapping
-\* rules the code as found keeps calling the replicator with an EMPTY candidate list: a holder remembered from
-\* an earlier rule does not lower the shortage of a later rule - a phantom shortage that copies nothing.)
-Replicates(d) == \E k \in 1..Len(d.tasks) : Len(d.tasks[k].nodes) > 0
-Quiet(hs) == \A n \in hs : LET d == Decide27(n, hs, {}, {}) IN ~Replicates(d) /\ d.del = "none"
-NoTasks(hs) == \A n \in hs : ~Replicates(Decide27(n, hs, {}, {}))
-h\* a check "replicates" when it hands the replicator a task with at least one candidate node. (With overlapping
-\* rules the code as found keeps calling the replicator with an EMPTY candidate list: a holder remembered from
-\* an earlier rule does not lower the shortage of a later rule - a phantom shortage that copies nothing.)
-Replicates(d) == \E k \in 1..Len(d.tasks) : Len(d.tasks[k].nodes) > 0
-Quiet(hs) == \A n \in hs : LET d == Decide27(n, hs, {}, {}) IN ~Replicates(d) /\ d.del = "none"
-NoTasks(hs) == \A n \in hs : ~Replicates(Decide27(n, hs, {}, {}))
-e\* a check "replicates" when it hands the replicator a task with at least one candidate node. (With overlapping
-\* rules the code as found keeps calling the replicator with an EMPTY candidate list: a holder remembered from
-\* an earlier rule does not lower the shortage of a later rule - a phantom shortage that copies nothing.)
-Replicates(d) == \E k \in 1..Len(d.tasks) : Len(d.tasks[k].nodes) > 0
-Quiet(hs) == \A n \in hs : LET d == Decide27(n, hs, {}, {}) IN ~Replicates(d) /\ d.del = "none"
-NoTasks(hs) == \A n \in hs : ~Replicates(Decide27(n, hs, {}, {}))
-c\* a check "replicates" when it hands the replicator a task with at least one candidate node. (With overlapping
-\* rules the code as found keeps calling the replicator with an EMPTY candidate list: a holder remembered from
-\* an earlier rule does not lower the shortage of a later rule - a phantom shortage that copies nothing.)
-Replicates(d) == \E k \in 1..Len(d.tasks) : Len(d.tasks[k].nodes) > 0
-Quiet(hs) == \A n \in hs : LET d == Decide27(n, hs, {}, {}) IN ~Replicates(d) /\ d.del = "none"
-NoTasks(hs) == \A n \in hs : ~Replicates(Decide27(n, hs, {}, {}))
-k\* a check "replicates" when it hands the replicator a task with at least one candidate node. (With overlapping
-\* rules the code as found keeps calling the replicator with an EMPTY candidate list: a holder remembered from
-\* an earlier rule does not lower the shortage of a later rule - a phantom shortage that copies nothing.)
-Replicates(d) == \E k \in 1..Len(d.tasks) : Len(d.tasks[k].nodes) > 0
-Quiet(hs) == \A n \in hs : LET d == Decide27(n, hs, {}, {}) IN ~Replicates(d) /\ d.del = "none"
-NoTasks(hs) == \A n \in hs : ~Replicates(Decide27(n, hs, {}, {}))
- \* a check "replicates" when it hands the replicator a task with at least one candidate node. (With overlapping
-\* rules the code as found keeps calling the replicator with an EMPTY candidate list: a holder remembered from
-\* an earlier rule does not lower the shortage of a later rule - a phantom shortage that copies nothing.)
-Replicates(d) == \E k \in 1..Len(d.tasks) : Len(d.tasks[k].nodes) > 0
-Quiet(hs) == \A n \in hs : LET d == Decide27(n, hs, {}, {}) IN ~Replicates(d) /\ d.del = "none"
-NoTasks(hs) == \A n \in hs : ~Replicates(Decide27(n, hs, {}, {}))
-i\* a check "replicates" when it hands the replicator a task with at least one candidate node. (With overlapping
-\* rules the code as found keeps calling the replicator with an EMPTY candidate list: a holder remembered from
-\* an earlier rule does not lower the shortage of a later rule - a phantom shortage that copies nothing.)
-Replicates(d) == \E k \in 1..Len(d.tasks) : Len(d.tasks[k].nodes) > 0
-Quiet(hs) == \A n \in hs : LET d == Decide27(n, hs, {}, {}) IN ~Replicates(d) /\ d.del = "none"
-NoTasks(hs) == \A n \in hs : ~Replicates(Decide27(n, hs, {}, {}))
-s\* a check "replicates" when it hands the replicator a task with at least one candidate node. (With overlapping
-\* rules the code as found keeps calling the replicator with an EMPTY candidate list: a holder remembered from
-\* an earlier rule does not lower the shortage of a later rule - a phantom shortage that copies nothing.)
-Replicates(d) == \E k \in 1..Len(d.tasks) : Len(d.tasks[k].nodes) > 0
-Quiet(hs) == \A n \in hs : LET d == Decide27(n, hs, {}, {}) IN ~Replicates(d) /\ d.del = "none"
-NoTasks(hs) == \A n \in hs : ~Replicates(Decide27(n, hs, {}, {}))
- \* a check "replicates" when it hands the replicator a task with at least one candidate node. (With overlapping
-\* rules the code as found keeps calling the replicator with an EMPTY candidate list: a holder remembered from
-\* an earlier rule does not lower the shortage of a later rule - a phantom shortage that copies nothing.)
-Replicates(d) == \E k \in 1..Len(d.tasks) : Len(d.tasks[k].nodes) > 0
-Quiet(hs) == \A n \in hs : LET d == Decide27(n, hs, {}, {}) IN ~Replicates(d) /\ d.del = "none"
-NoTasks(hs) == \A n \in hs : ~Replicates(Decide27(n, hs, {}, {}))
-o\* a check "replicates" when it hands the replicator a task with at least one candidate node. (With overlapping
-\* rules the code as found keeps calling the replicator with an EMPTY candidate list: a holder remembered from
-\* an earlier rule does not lower the shortage of a later rule - a phantom shortage that copies nothing.)
-Replicates(d) == \E k \in 1..Len(d.tasks) : Len(d.tasks[k].nodes) > 0
-Quiet(hs) == \A n \in hs : LET d == Decide27(n, hs, {}, {}) IN ~Replicates(d) /\ d.del = "none"
-NoTasks(hs) == \A n \in hs : ~Replicates(Decide27(n, hs, {}, {}))
-n\* a check "replicates" when it hands the replicator a task with at least one candidate node. (With overlapping
-\* rules the code as found keeps calling the replicator with an EMPTY candidate list: a holder remembered from
-\* an earlier rule does not lower the shortage of a later rule - a phantom shortage that copies nothing.)
-Replicates(d) == \E k \in 1..Len(d.tasks) : Len(d.tasks[k].nodes) > 0
-Quiet(hs) == \A n \in hs : LET d == Decide27(n, hs, {}, {}) IN ~Replicates(d) /\ d.del = "none"
-NoTasks(hs) == \A n \in hs : ~Replicates(Decide27(n, hs, {}, {}))
-e\* a check "replicates" when it hands the replicator a task with at least one candidate node. (With overlapping
-\* rules the code as found keeps calling the replicator with an EMPTY candidate list: a holder remembered from
-\* an earlier rule does not lower the shortage of a later rule - a phantom shortage that copies nothing.)
-Replicates(d) == \E k \in 1..Len(d.tasks) : Len(d.tasks[k].nodes) > 0
-Quiet(hs) == \A n \in hs : LET d == Decide27(n, hs, {}, {}) IN ~Replicates(d) /\ d.del = "none"
-NoTasks(hs) == \A n \in hs : ~Replicates(Decide27(n, hs, {}, {}))
- \* a check "replicates" when it hands the replicator a task with at least one candidate node. (With overlapping
-\* rules the code as found keeps calling the replicator with an EMPTY candidate list: a holder remembered from
-\* an earlier rule does not lower the shortage of a later rule - a phantom shortage that copies nothing.)
-Replicates(d) == \E k \in 1..Len(d.tasks) : Len(d.tasks[k].nodes) > 0
-Quiet(hs) == \A n \in hs : LET d == Decide27(n, hs, {}, {}) IN ~Replicates(d) /\ d.del = "none"
-NoTasks(hs) == \A n \in hs : ~Replicates(Decide27(n, hs, {}, {}))
-s\* a check "replicates" when it hands the replicator a task with at least one candidate node. (With overlapping
-\* rules the code as found keeps calling the replicator with an EMPTY candidate list: a holder remembered from
-\* an earlier rule does not lower the shortage of a later rule - a phantom shortage that copies nothing.)
-Replicates(d) == \E k \in 1..Len(d.tasks) : Len(d.tasks[k].nodes) > 0
-Quiet(hs) == \A n \in hs : LET d == Decide27(n, hs, {}, {}) IN ~Replicates(d) /\ d.del = "none"
-NoTasks(hs) == \A n \in hs : ~Replicates(Decide27(n, hs, {}, {}))
-t\* a check "replicates" when it hands the replicator a task with at least one candidate node. (With overlapping
-\* rules the code as found keeps calling the replicator with an EMPTY candidate list: a holder remembered from
-\* an earlier rule does not lower the shortage of a later rule - a phantom shortage that copies nothing.)
-Replicates(d) == \E k \in 1..Len(d.tasks) : Len(d.tasks[k].nodes) > 0
-Quiet(hs) == \A n \in hs : LET d == Decide27(n, hs, {}, {}) IN ~Replicates(d) /\ d.del = "none"
-NoTasks(hs) == \A n \in hs : ~Replicates(Decide27(n, hs, {}, {}))
-e\* a check "replicates" when it hands the replicator a task with at least one candidate node. (With overlapping
-\* rules the code as found keeps calling the replicator with an EMPTY candidate list: a holder remembered from
-\* an earlier rule does not lower the shortage of a later rule - a phantom shortage that copies nothing.)
-Replicates(d) == \E k \in 1..Len(d.tasks) : Len(d.tasks[k].nodes) > 0
-Quiet(hs) == \A n \in hs : LET d == Decide27(n, hs, {}, {}) IN ~Replicates(d) /\ d.del = "none"
-NoTasks(hs) == \A n \in hs : ~Replicates(Decide27(n, hs, {}, {}))
-p\* a check "replicates" when it hands the replicator a task with at least one candidate node. (With overlapping
-\* rules the code as found keeps calling the replicator with an EMPTY candidate list: a holder remembered from
-\* an earlier rule does not lower the shortage of a later rule - a phantom shortage that copies nothing.)
-Replicates(d) == \E k \in 1..Len(d.tasks) : Len(d.tasks[k].nodes) > 0
-Quiet(hs) == \A n \in hs : LET d == Decide27(n, hs, {}, {}) IN ~Replicates(d) /\ d.del = "none"
-NoTasks(hs) == \A n \in hs : ~Replicates(Decide27(n, hs, {}, {}))
-;\* a check "replicates" when it hands the replicator a task with at least one candidate node. (With overlapping
-\* rules the code as found keeps calling the replicator with an EMPTY candidate list: a holder remembered from
-\* an earlier rule does not lower the shortage of a later rule - a phantom shortage that copies nothing.)
-Replicates(d) == \E k \in 1..Len(d.tasks) : Len(d.tasks[k].nodes) > 0
-Quiet(hs) == \A n \in hs : LET d == Decide27(n, hs, {}, {}) IN ~Replicates(d) /\ d.del = "none"
-NoTasks(hs) == \A n \in hs : ~Replicates(Decide27(n, hs, {}, {}))
- \* a check "replicates" when it hands the replicator a task with at least one candidate node. (With overlapping
-\* rules the code as found keeps calling the replicator with an EMPTY candidate list: a holder remembered from
-\* an earlier rule does not lower the shortage of a later rule - a phantom shortage that copies nothing.)
-Replicates(d) == \E k \in 1..Len(d.tasks) : Len(d.tasks[k].nodes) > 0
-Quiet(hs) == \A n \in hs : LET d == Decide27(n, hs, {}, {}) IN ~Replicates(d) /\ d.del = "none"
-NoTasks(hs) == \A n \in hs : ~Replicates(Decide27(n, hs, {}, {}))
-c\* a check "replicates" when it hands the replicator a task with at least one candidate node. (With overlapping
-\* rules the code as found keeps calling the replicator with an EMPTY candidate list: a holder remembered from
-\* an earlier rule does not lower the shortage of a later rule - a phantom shortage that copies nothing.)
-Replicates(d) == \E k \in 1..Len(d.tasks) : Len(d.tasks[k].nodes) > 0
-Quiet(hs) == \A n \in hs : LET d == Decide27(n, hs, {}, {}) IN ~Replicates(d) /\ d.del = "none"
-NoTasks(hs) == \A n \in hs : ~Replicates(Decide27(n, hs, {}, {}))
-h\* a check "replicates" when it hands the replicator a task with at least one candidate node. (With overlapping
-\* rules the code as found keeps calling the replicator with an EMPTY candidate list: a holder remembered from
-\* an earlier rule does not lower the shortage of a later rule - a phantom shortage that copies nothing.)
-Replicates(d) == \E k \in 1..Len(d.tasks) : Len(d.tasks[k].nodes) > 0
-Quiet(hs) == \A n \in hs : LET d == Decide27(n, hs, {}, {}) IN ~Replicates(d) /\ d.del = "none"
-NoTasks(hs) == \A n \in hs : ~Replicates(Decide27(n, hs, {}, {}))
-e\* a check "replicates" when it hands the replicator a task with at least one candidate node. (With overlapping
-\* rules the code as found keeps calling the replicator with an EMPTY candidate list: a holder remembered from
-\* an earlier rule does not lower the shortage of a later rule - a phantom shortage that copies nothing.)
-Replicates(d) == \E k \in 1..Len(d.tasks) : Len(d.tasks[k].nodes) > 0
-Quiet(hs) == \A n \in hs : LET d == Decide27(n, hs, {}, {}) IN ~Replicates(d) /\ d.del = "none"
-NoTasks(hs) == \A n \in hs : ~Replicates(Decide27(n, hs, {}, {}))
-c\* a check "replicates" when it hands the replicator a task with at least one candidate node. (With overlapping
-\* rules the code as found keeps calling the replicator with an EMPTY candidate list: a holder remembered from
-\* an earlier rule does not lower the shortage of a later rule - a phantom shortage that copies nothing.)
-Replicates(d) == \E k \in 1..Len(d.tasks) : Len(d.tasks[k].nodes) > 0
-Quiet(hs) == \A n \in hs : LET d == Decide27(n, hs, {}, {}) IN ~Replicates(d) /\ d.del = "none"
-NoTasks(hs) == \A n \in hs : ~Replicates(Decide27(n, hs, {}, {}))
-k\* a check "replicates" when it hands the replicator a task with at least one candidate node. (With overlapping
-\* rules the code as found keeps calling the replicator with an EMPTY candidate list: a holder remembered from
-\* an earlier rule does not lower the shortage of a later rule - a phantom shortage that copies nothing.)
-Replicates(d) == \E k \in 1..Len(d.tasks) : Len(d.tasks[k].nodes) > 0
-Quiet(hs) == \A n \in hs : LET d == Decide27(n, hs, {}, {}) IN ~Replicates(d) /\ d.del = "none"
-NoTasks(hs) == \A n \in hs : ~Replicates(Decide27(n, hs, {}, {}))
-s\* a check "replicates" when it hands the replicator a task with at least one candidate node. (With overlapping
-\* rules the code as found keeps calling the replicator with an EMPTY candidate list: a holder remembered from
-\* an earlier rule does not lower the shortage of a later rule - a phantom shortage that copies nothing.)
-Replicates(d) == \E k \in 1..Len(d.tasks) : Len(d.tasks[k].nodes) > 0
-Quiet(hs) == \A n \in hs : LET d == Decide27(n, hs, {}, {}) IN ~Replicates(d) /\ d.del = "none"
-NoTasks(hs) == \A n \in hs : ~Replicates(Decide27(n, hs, {}, {}))
- \* a check "replicates" when it hands the replicator a task with at least one candidate node. (With overlapping
-\* rules the code as found keeps calling the replicator with an EMPTY candidate list: a holder remembered from
-\* an earlier rule does not lower the shortage of a later rule - a phantom shortage that copies nothing.)
-Replicates(d) == \E k \in 1..Len(d.tasks) : Len(d.tasks[k].nodes) > 0
-Quiet(hs) == \A n \in hs : LET d == Decide27(n, hs, {}, {}) IN ~Replicates(d) /\ d.del = "none"
-NoTasks(hs) == \A n \in hs : ~Replicates(Decide27(n, hs, {}, {}))
-o\* a check "replicates" when it hands the replicator a task with at least one candidate node. (With overlapping
-\* rules the code as found keeps calling the replicator with an EMPTY candidate list: a holder remembered from
-\* an earlier rule does not lower the shortage of a later rule - a phantom shortage that copies nothing.)
-Replicates(d) == \E k \in 1..Len(d.tasks) : Len(d.tasks[k].nodes) > 0
-Quiet(hs) == \A n \in hs : LET d == Decide27(n, hs, {}, {}) IN ~Replicates(d) /\ d.del = "none"
-NoTasks(hs) == \A n \in hs : ~Replicates(Decide27(n, hs, {}, {}))
-f\* a check "replicates" when it hands the replicator a task with at least one candidate node. (With overlapping
-\* rules the code as found keeps calling the replicator with an EMPTY candidate list: a holder remembered from
-\* an earlier rule does not lower the shortage of a later rule - a phantom shortage that copies nothing.)
-Replicates(d) == \E k \in 1..Len(d.tasks) : Len(d.tasks[k].nodes) > 0
-Quiet(hs) == \A n \in hs : LET d == Decide27(n, hs, {}, {}) IN ~Replicates(d) /\ d.del = "none"
-NoTasks(hs) == \A n \in hs : ~Replicates(Decide27(n, hs, {}, {}))
- \* a check "replicates" when it hands the replicator a task with at least one candidate node. (With overlapping
-\* rules the code as found keeps calling the replicator with an EMPTY candidate list: a holder remembered from
-\* an earlier rule does not lower the shortage of a later rule - a phantom shortage that copies nothing.)
-Replicates(d) == \E k \in 1..Len(d.tasks) : Len(d.tasks[k].nodes) > 0
-Quiet(hs) == \A n \in hs : LET d == Decide27(n, hs, {}, {}) IN ~Replicates(d) /\ d.del = "none"
-NoTasks(hs) == \A n \in hs : ~Replicates(Decide27(n, hs, {}, {}))
-d\* a check "replicates" when it hands the replicator a task with at least one candidate node. (With overlapping
-\* rules the code as found keeps calling the replicator with an EMPTY candidate list: a holder remembered from
-\* an earlier rule does not lower the shortage of a later rule - a phantom shortage that copies nothing.)
-Replicates(d) == \E k \in 1..Len(d.tasks) : Len(d.tasks[k].nodes) > 0
-Quiet(hs) == \A n \in hs : LET d == Decide27(n, hs, {}, {}) IN ~Replicates(d) /\ d.del = "none"
-NoTasks(hs) == \A n \in hs : ~Replicates(Decide27(n, hs, {}, {}))
-i\* a check "replicates" when it hands the replicator a task with at least one candidate node. (With overlapping
-\* rules the code as found keeps calling the replicator with an EMPTY candidate list: a holder remembered from
-\* an earlier rule does not lower the shortage of a later rule - a phantom shortage that copies nothing.)
-Replicates(d) == \E k \in 1..Len(d.tasks) : Len(d.tasks[k].nodes) > 0
-Quiet(hs) == \A n \in hs : LET d == Decide27(n, hs, {}, {}) IN ~Replicates(d) /\ d.del = "none"
-NoTasks(hs) == \A n \in hs : ~Replicates(Decide27(n, hs, {}, {}))
-f\* a check "replicates" when it hands the replicator a task with at least one candidate node. (With overlapping
-\* rules the code as found keeps calling the replicator with an EMPTY candidate list: a holder remembered from
-\* an earlier rule does not lower the shortage of a later rule - a phantom shortage that copies nothing.)
-Replicates(d) == \E k \in 1..Len(d.tasks) : Len(d.tasks[k].nodes) > 0
-Quiet(hs) == \A n \in hs : LET d == Decide27(n, hs, {}, {}) IN ~Replicates(d) /\ d.del = "none"
-NoTasks(hs) == \A n \in hs : ~Replicates(Decide27(n, hs, {}, {}))
-f\* a check "replicates" when it hands the replicator a task with at least one candidate node. (With overlapping
-\* rules the code as found keeps calling the replicator with an EMPTY candidate list: a holder remembered from
-\* an earlier rule does not lower the shortage of a later rule - a phantom shortage that copies nothing.)
-Replicates(d) == \E k \in 1..Len(d.tasks) : Len(d.tasks[k].nodes) > 0
-Quiet(hs) == \A n \in hs : LET d == Decide27(n, hs, {}, {}) IN ~Replicates(d) /\ d.del = "none"
-NoTasks(hs) == \A n \in hs : ~Replicates(Decide27(n, hs, {}, {}))
-e\* a check "replicates" when it hands the replicator a task with at least one candidate node. (With overlapping
-\* rules the code as found keeps calling the replicator with an EMPTY candidate list: a holder remembered from
-\* an earlier rule does not lower the shortage of a later rule - a phantom shortage that copies nothing.)
-Replicates(d) == \E k \in 1..Len(d.tasks) : Len(d.tasks[k].nodes) > 0
-Quiet(hs) == \A n \in hs : LET d == Decide27(n, hs, {}, {}) IN ~Replicates(d) /\ d.del = "none"
-NoTasks(hs) == \A n \in hs : ~Replicates(Decide27(n, hs, {}, {}))
-r\* a check "replicates" when it hands the replicator a task with at least one candidate node. (With overlapping
-\* rules the code as found keeps calling the replicator with an EMPTY candidate list: a holder remembered from
-\* an earlier rule does not lower the shortage of a later rule - a phantom shortage that copies nothing.)
-Replicates(d) == \E k \in 1..Len(d.tasks) : Len(d.tasks[k].nodes) > 0
-Quiet(hs) == \A n \in hs : LET d == Decide27(n, hs, {}, {}) IN ~Replicates(d) /\ d.del = "none"
-NoTasks(hs) == \A n \in hs : ~Replicates(Decide27(n, hs, {}, {}))
-e\* a check "replicates" when it hands the replicator a task with at least one candidate node. (With overlapping
-\* rules the code as found keeps calling the replicator with an EMPTY candidate list: a holder remembered from
-\* an earlier rule does not lower the shortage of a later rule - a phantom shortage that copies nothing.)
-Replicates(d) == \E k \in 1..Len(d.tasks) : Len(d.tasks[k].nodes) > 0
-Quiet(hs) == \A n \in hs : LET d == Decide27(n, hs, {}, {}) IN ~Replicates(d) /\ d.del = "none"
-NoTasks(hs) == \A n \in hs : ~Replicates(Decide27(n, hs, {}, {}))
-n\* a check "replicates" when it hands the replicator a task with at least one candidate node. (With overlapping
-\* rules the code as found keeps calling the replicator with an EMPTY candidate list: a holder remembered from
-\* an earlier rule does not lower the shortage of a later rule - a phantom shortage that copies nothing.)
-Replicates(d) == \E k \in 1..Len(d.tasks) : Len(d.tasks[k].nodes) > 0
-Quiet(hs) == \A n \in hs : LET d == Decide27(n, hs, {}, {}) IN ~Replicates(d) /\ d.del = "none"
-NoTasks(hs) == \A n \in hs : ~Replicates(Decide27(n, hs, {}, {}))
-t\* a check "replicates" when it hands the replicator a task with at least one candidate node. (With overlapping
-\* rules the code as found keeps calling the replicator with an EMPTY candidate list: a holder remembered from
-\* an earlier rule does not lower the shortage of a later rule - a phantom shortage that copies nothing.)
-Replicates(d) == \E k \in 1..Len(d.tasks) : Len(d.tasks[k].nodes) > 0
-Quiet(hs) == \A n \in hs : LET d == Decide27(n, hs, {}, {}) IN ~Replicates(d) /\ d.del = "none"
-NoTasks(hs) == \A n \in hs : ~Replicates(Decide27(n, hs, {}, {}))
- \* a check "replicates" when it hands the replicator a task with at least one candidate node. (With overlapping
-\* rules the code as found keeps calling the replicator with an EMPTY candidate list: a holder remembered from
-\* an earlier rule does not lower the shortage of a later rule - a phantom shortage that copies nothing.)
-Replicates(d) == \E k \in 1..Len(d.tasks) : Len(d.tasks[k].nodes) > 0
-Quiet(hs) == \A n \in hs : LET d == Decide27(n, hs, {}, {}) IN ~Replicates(d) /\ d.del = "none"
-NoTasks(hs) == \A n \in hs : ~Replicates(Decide27(n, hs, {}, {}))
-n\* a check "replicates" when it hands the replicator a task with at least one candidate node. (With overlapping
-\* rules the code as found keeps calling the replicator with an EMPTY candidate list: a holder remembered from
-\* an earlier rule does not lower the shortage of a later rule - a phantom shortage that copies nothing.)
-Replicates(d) == \E k \in 1..Len(d.tasks) : Len(d.tasks[k].nodes) > 0
-Quiet(hs) == \A n \in hs : LET d == Decide27(n, hs, {}, {}) IN ~Replicates(d) /\ d.del = "none"
-NoTasks(hs) == \A n \in hs : ~Replicates(Decide27(n, hs, {}, {}))
-o\* a check "replicates" when it hands the replicator a task with at least one candidate node. (With overlapping
-\* rules the code as found keeps calling the replicator with an EMPTY candidate list: a holder remembered from
-\* an earlier rule does not lower the shortage of a later rule - a phantom shortage that copies nothing.)
-Replicates(d) == \E k \in 1..Len(d.tasks) : Len(d.tasks[k].nodes) > 0
-Quiet(hs) == \A n \in hs : LET d == Decide27(n, hs, {}, {}) IN ~Replicates(d) /\ d.del = "none"
-NoTasks(hs) == \A n \in hs : ~Replicates(Decide27(n, hs, {}, {}))
-d\* a check "replicates" when it hands the replicator a task with at least one candidate node. (With overlapping
-\* rules the code as found keeps calling the replicator with an EMPTY candidate list: a holder remembered from
-\* an earlier rule does not lower the shortage of a later rule - a phantom shortage that copies nothing.)
-Replicates(d) == \E k \in 1..Len(d.tasks) : Len(d.tasks[k].nodes) > 0
-Quiet(hs) == \A n \in hs : LET d == Decide27(n, hs, {}, {}) IN ~Replicates(d) /\ d.del = "none"
-NoTasks(hs) == \A n \in hs : ~Replicates(Decide27(n, hs, {}, {}))
-e\* a check "replicates" when it hands the replicator a task with at least one candidate node. (With overlapping
-\* rules the code as found keeps calling the replicator with an EMPTY candidate list: a holder remembered from
-\* an earlier rule does not lower the shortage of a later rule - a phantom shortage that copies nothing.)
-Replicates(d) == \E k \in 1..Len(d.tasks) : Len(d.tasks[k].nodes) > 0
-Quiet(hs) == \A n \in hs : LET d == Decide27(n, hs, {}, {}) IN ~Replicates(d) /\ d.del = "none"
-NoTasks(hs) == \A n \in hs : ~Replicates(Decide27(n, hs, {}, {}))
-s\* a check "replicates" when it hands the replicator a task with at least one candidate node. (With overlapping
-\* rules the code as found keeps calling the replicator with an EMPTY candidate list: a holder remembered from
-\* an earlier rule does not lower the shortage of a later rule - a phantom shortage that copies nothing.)
-Replicates(d) == \E k \in 1..Len(d.tasks) : Len(d.tasks[k].nodes) > 0
-Quiet(hs) == \A n \in hs : LET d == Decide27(n, hs, {}, {}) IN ~Replicates(d) /\ d.del = "none"
-NoTasks(hs) == \A n \in hs : ~Replicates(Decide27(n, hs, {}, {}))
- \* a check "replicates" when it hands the replicator a task with at least one candidate node. (With overlapping
-\* rules the code as found keeps calling the replicator with an EMPTY candidate list: a holder remembered from
-\* an earlier rule does not lower the shortage of a later rule - a phantom shortage that copies nothing.)
-Replicates(d) == \E k \in 1..Len(d.tasks) : Len(d.tasks[k].nodes) > 0
-Quiet(hs) == \A n \in hs : LET d == Decide27(n, hs, {}, {}) IN ~Replicates(d) /\ d.del = "none"
-NoTasks(hs) == \A n \in hs : ~Replicates(Decide27(n, hs, {}, {}))
-i\* a check "replicates" when it hands the replicator a task with at least one candidate node. (With overlapping
-\* rules the code as found keeps calling the replicator with an EMPTY candidate list: a holder remembered from
-\* an earlier rule does not lower the shortage of a later rule - a phantom shortage that copies nothing.)
-Replicates(d) == \E k \in 1..Len(d.tasks) : Len(d.tasks[k].nodes) > 0
-Quiet(hs) == \A n \in hs : LET d == Decide27(n, hs, {}, {}) IN ~Replicates(d) /\ d.del = "none"
-NoTasks(hs) == \A n \in hs : ~Replicates(Decide27(n, hs, {}, {}))
-n\* a check "replicates" when it hands the replicator a task with at least one candidate node. (With overlapping
-\* rules the code as found keeps calling the replicator with an EMPTY candidate list: a holder remembered from
-\* an earlier rule does not lower the shortage of a later rule - a phantom shortage that copies nothing.)
-Replicates(d) == \E k \in 1..Len(d.tasks) : Len(d.tasks[k].nodes) > 0
-Quiet(hs) == \A n \in hs : LET d == Decide27(n, hs, {}, {}) IN ~Replicates(d) /\ d.del = "none"
-NoTasks(hs) == \A n \in hs : ~Replicates(Decide27(n, hs, {}, {}))
-t\* a check "replicates" when it hands the replicator a task with at least one candidate node. (With overlapping
-\* rules the code as found keeps calling the replicator with an EMPTY candidate list: a holder remembered from
-\* an earlier rule does not lower the shortage of a later rule - a phantom shortage that copies nothing.)
-Replicates(d) == \E k \in 1..Len(d.tasks) : Len(d.tasks[k].nodes) > 0
-Quiet(hs) == \A n \in hs : LET d == Decide27(n, hs, {}, {}) IN ~Replicates(d) /\ d.del = "none"
-NoTasks(hs) == \A n \in hs : ~Replicates(Decide27(n, hs, {}, {}))
-e\* a check "replicates" when it hands the replicator a task with at least one candidate node. (With overlapping
-\* rules the code as found keeps calling the replicator with an EMPTY candidate list: a holder remembered from
-\* an earlier rule does not lower the shortage of a later rule - a phantom shortage that copies nothing.)
-Replicates(d) == \E k \in 1..Len(d.tasks) : Len(d.tasks[k].nodes) > 0
-Quiet(hs) == \A n \in hs : LET d == Decide27(n, hs, {}, {}) IN ~Replicates(d) /\ d.del = "none"
-NoTasks(hs) == \A n \in hs : ~Replicates(Decide27(n, hs, {}, {}))
-r\* a check "replicates" when it hands the replicator a task with at least one candidate node. (With overlapping
-\* rules the code as found keeps calling the replicator with an EMPTY candidate list: a holder remembered from
-\* an earlier rule does not lower the shortage of a later rule - a phantom shortage that copies nothing.)
-Replicates(d) == \E k \in 1..Len(d.tasks) : Len(d.tasks[k].nodes) > 0
-Quiet(hs) == \A n \in hs : LET d == Decide27(n, hs, {}, {}) IN ~Replicates(d) /\ d.del = "none"
-NoTasks(hs) == \A n \in hs : ~Replicates(Decide27(n, hs, {}, {}))
-l\* a check "replicates" when it hands the replicator a task with at least one candidate node. (With overlapping
-\* rules the code as found keeps calling the replicator with an EMPTY candidate list: a holder remembered from
-\* an earlier rule does not lower the shortage of a later rule - a phantom shortage that copies nothing.)
-Replicates(d) == \E k \in 1..Len(d.tasks) : Len(d.tasks[k].nodes) > 0
-Quiet(hs) == \A n \in hs : LET d == Decide27(n, hs, {}, {}) IN ~Replicates(d) /\ d.del = "none"
-NoTasks(hs) == \A n \in hs : ~Replicates(Decide27(n, hs, {}, {}))
-e\* a check "replicates" when it hands the replicator a task with at least one candidate node. (With overlapping
-\* rules the code as found keeps calling the replicator with an EMPTY candidate list: a holder remembered from
-\* an earlier rule does not lower the shortage of a later rule - a phantom shortage that copies nothing.)
-Replicates(d) == \E k \in 1..Len(d.tasks) : Len(d.tasks[k].nodes) > 0
-Quiet(hs) == \A n \in hs : LET d == Decide27(n, hs, {}, {}) IN ~Replicates(d) /\ d.del = "none"
-NoTasks(hs) == \A n \in hs : ~Replicates(Decide27(n, hs, {}, {}))
-a\* a check "replicates" when it hands the replicator a task with at least one candidate node. (With overlapping
-\* rules the code as found keeps calling the replicator with an EMPTY candidate list: a holder remembered from
-\* an earlier rule does not lower the shortage of a later rule - a phantom shortage that copies nothing.)
-Replicates(d) == \E k \in 1..Len(d.tasks) : Len(d.tasks[k].nodes) > 0
-Quiet(hs) == \A n \in hs : LET d == Decide27(n, hs, {}, {}) IN ~Replicates(d) /\ d.del = "none"
-NoTasks(hs) == \A n \in hs : ~Replicates(Decide27(n, hs, {}, {}))
-v\* a check "replicates" when it hands the replicator a task with at least one candidate node. (With overlapping
-\* rules the code as found keeps calling the replicator with an EMPTY candidate list: a holder remembered from
-\* an earlier rule does not lower the shortage of a later rule - a phantom shortage that copies nothing.)
-Replicates(d) == \E k \in 1..Len(d.tasks) : Len(d.tasks[k].nodes) > 0
-Quiet(hs) == \A n \in hs : LET d == Decide27(n, hs, {}, {}) IN ~Replicates(d) /\ d.del = "none"
-NoTasks(hs) == \A n \in hs : ~Replicates(Decide27(n, hs, {}, {}))
-e\* a check "replicates" when it hands the replicator a task with at least one candidate node. (With overlapping
-\* rules the code as found keeps calling the replicator with an EMPTY candidate list: a holder remembered from
-\* an earlier rule does not lower the shortage of a later rule - a phantom shortage that copies nothing.)
-Replicates(d) == \E k \in 1..Len(d.tasks) : Len(d.tasks[k].nodes) > 0
-Quiet(hs) == \A n \in hs : LET d == Decide27(n, hs, {}, {}) IN ~Replicates(d) /\ d.del = "none"
-NoTasks(hs) == \A n \in hs : ~Replicates(Decide27(n, hs, {}, {}))
- \* a check "replicates" when it hands the replicator a task with at least one candidate node. (With overlapping
-\* rules the code as found keeps calling the replicator with an EMPTY candidate list: a holder remembered from
-\* an earlier rule does not lower the shortage of a later rule - a phantom shortage that copies nothing.)
-Replicates(d) == \E k \in 1..Len(d.tasks) : Len(d.tasks[k].nodes) > 0
-Quiet(hs) == \A n \in hs : LET d == Decide27(n, hs, {}, {}) IN ~Replicates(d) /\ d.del = "none"
-NoTasks(hs) == \A n \in hs : ~Replicates(Decide27(n, hs, {}, {}))
-a\* a check "replicates" when it hands the replicator a task with at least one candidate node. (With overlapping
-\* rules the code as found keeps calling the replicator with an EMPTY candidate list: a holder remembered from
-\* an earlier rule does not lower the shortage of a later rule - a phantom shortage that copies nothing.)
-Replicates(d) == \E k \in 1..Len(d.tasks) : Len(d.tasks[k].nodes) > 0
-Quiet(hs) == \A n \in hs : LET d == Decide27(n, hs, {}, {}) IN ~Replicates(d) /\ d.del = "none"
-NoTasks(hs) == \A n \in hs : ~Replicates(Decide27(n, hs, {}, {}))
-r\* a check "replicates" when it hands the replicator a task with at least one candidate node. (With overlapping
-\* rules the code as found keeps calling the replicator with an EMPTY candidate list: a holder remembered from
-\* an earlier rule does not lower the shortage of a later rule - a phantom shortage that copies nothing.)
-Replicates(d) == \E k \in 1..Len(d.tasks) : Len(d.tasks[k].nodes) > 0
-Quiet(hs) == \A n \in hs : LET d == Decide27(n, hs, {}, {}) IN ~Replicates(d) /\ d.del = "none"
-NoTasks(hs) == \A n \in hs : ~Replicates(Decide27(n, hs, {}, {}))
-b\* a check "replicates" when it hands the replicator a task with at least one candidate node. (With overlapping
-\* rules the code as found keeps calling the replicator with an EMPTY candidate list: a holder remembered from
-\* an earlier rule does not lower the shortage of a later rule - a phantom shortage that copies nothing.)
-Replicates(d) == \E k \in 1..Len(d.tasks) : Len(d.tasks[k].nodes) > 0
-Quiet(hs) == \A n \in hs : LET d == Decide27(n, hs, {}, {}) IN ~Replicates(d) /\ d.del = "none"
-NoTasks(hs) == \A n \in hs : ~Replicates(Decide27(n, hs, {}, {}))
-i\* a check "replicates" when it hands the replicator a task with at least one candidate node. (With overlapping
-\* rules the code as found keeps calling the replicator with an EMPTY candidate list: a holder remembered from
-\* an earlier rule does not lower the shortage of a later rule - a phantom shortage that copies nothing.)
-Replicates(d) == \E k \in 1..Len(d.tasks) : Len(d.tasks[k].nodes) > 0
-Quiet(hs) == \A n \in hs : LET d == Decide27(n, hs, {}, {}) IN ~Replicates(d) /\ d.del = "none"
-NoTasks(hs) == \A n \in hs : ~Replicates(Decide27(n, hs, {}, {}))
-t\* a check "replicates" when it hands the replicator a task with at least one candidate node. (With overlapping
-\* rules the code as found keeps calling the replicator with an EMPTY candidate list: a holder remembered from
-\* an earlier rule does not lower the shortage of a later rule - a phantom shortage that copies nothing.)
-Replicates(d) == \E k \in 1..Len(d.tasks) : Len(d.tasks[k].nodes) > 0
-Quiet(hs) == \A n \in hs : LET d == Decide27(n, hs, {}, {}) IN ~Replicates(d) /\ d.del = "none"
-NoTasks(hs) == \A n \in hs : ~Replicates(Decide27(n, hs, {}, {}))
-r\* a check "replicates" when it hands the replicator a task with at least one candidate node. (With overlapping
-\* rules the code as found keeps calling the replicator with an EMPTY candidate list: a holder remembered from
-\* an earlier rule does not lower the shortage of a later rule - a phantom shortage that copies nothing.)
-Replicates(d) == \E k \in 1..Len(d.tasks) : Len(d.tasks[k].nodes) > 0
-Quiet(hs) == \A n \in hs : LET d == Decide27(n, hs, {}, {}) IN ~Replicates(d) /\ d.del = "none"
-NoTasks(hs) == \A n \in hs : ~Replicates(Decide27(n, hs, {}, {}))
-a\* a check "replicates" when it hands the replicator a task with at least one candidate node. (With overlapping
-\* rules the code as found keeps calling the replicator with an EMPTY candidate list: a holder remembered from
-\* an earlier rule does not lower the shortage of a later rule - a phantom shortage that copies nothing.)
-Replicates(d) == \E k \in 1..Len(d.tasks) : Len(d.tasks[k].nodes) > 0
-Quiet(hs) == \A n \in hs : LET d == Decide27(n, hs, {}, {}) IN ~Replicates(d) /\ d.del = "none"
-NoTasks(hs) == \A n \in hs : ~Replicates(Decide27(n, hs, {}, {}))
-r\* a check "replicates" when it hands the replicator a task with at least one candidate node. (With overlapping
-\* rules the code as found keeps calling the replicator with an EMPTY candidate list: a holder remembered from
-\* an earlier rule does not lower the shortage of a later rule - a phantom shortage that copies nothing.)
-Replicates(d) == \E k \in 1..Len(d.tasks) : Len(d.tasks[k].nodes) > 0
-Quiet(hs) == \A n \in hs : LET d == Decide27(n, hs, {}, {}) IN ~Replicates(d) /\ d.del = "none"
-NoTasks(hs) == \A n \in hs : ~Replicates(Decide27(n, hs, {}, {}))
-i\* a check "replicates" when it hands the replicator a task with at least one candidate node. (With overlapping
-\* rules the code as found keeps calling the replicator with an EMPTY candidate list: a holder remembered from
-\* an earlier rule does not lower the shortage of a later rule - a phantom shortage that copies nothing.)
-Replicates(d) == \E k \in 1..Len(d.tasks) : Len(d.tasks[k].nodes) > 0
-Quiet(hs) == \A n \in hs : LET d == Decide27(n, hs, {}, {}) IN ~Replicates(d) /\ d.del = "none"
-NoTasks(hs) == \A n \in hs : ~Replicates(Decide27(n, hs, {}, {}))
-l\* a check "replicates" when it hands the replicator a task with at least one candidate node. (With overlapping
-\* rules the code as found keeps calling the replicator with an EMPTY candidate list: a holder remembered from
-\* an earlier rule does not lower the shortage of a later rule - a phantom shortage that copies nothing.)
-Replicates(d) == \E k \in 1..Len(d.tasks) : Len(d.tasks[k].nodes) > 0
-Quiet(hs) == \A n \in hs : LET d == Decide27(n, hs, {}, {}) IN ~Replicates(d) /\ d.del = "none"
-NoTasks(hs) == \A n \in hs : ~Replicates(Decide27(n, hs, {}, {}))
-y\* a check "replicates" when it hands the replicator a task with at least one candidate node. (With overlapping
-\* rules the code as found keeps calling the replicator with an EMPTY candidate list: a holder remembered from
-\* an earlier rule does not lower the shortage of a later rule - a phantom shortage that copies nothing.)
-Replicates(d) == \E k \in 1..Len(d.tasks) : Len(d.tasks[k].nodes) > 0
-Quiet(hs) == \A n \in hs : LET d == Decide27(n, hs, {}, {}) IN ~Replicates(d) /\ d.del = "none"
-NoTasks(hs) == \A n \in hs : ~Replicates(Decide27(n, hs, {}, {}))
-.\* a check "replicates" when it hands the replicator a task with at least one candidate node. (With overlapping
-\* rules the code as found keeps calling the replicator with an EMPTY candidate list: a holder remembered from
-\* an earlier rule does not lower the shortage of a later rule - a phantom shortage that copies nothing.)
-Replicates(d) == \E k \in 1..Len(d.tasks) : Len(d.tasks[k].nodes) > 0
-Quiet(hs) == \A n \in hs : LET d == Decide27(n, hs, {}, {}) IN ~Replicates(d) /\ d.del = "none"
-NoTasks(hs) == \A n \in hs : ~Replicates(Decide27(n, hs, {}, {}))
-
-\* a check "replicates" when it hands the replicator a task with at least one candidate node. (With overlapping
-\* rules the code as found keeps calling the replicator with an EMPTY candidate list: a holder remembered from
-\* an earlier rule does not lower the shortage of a later rule - a phantom shortage that copies nothing.)
-Replicates(d) == \E k \in 1..Len(d.tasks) : Len(d.tasks[k].nodes) > 0
-Quiet(hs) == \A n \in hs : LET d == Decide27(n, hs, {}, {}) IN ~Replicates(d) /\ d.del = "none"
-NoTasks(hs) == \A n \in hs : ~Replicates(Decide27(n, hs, {}, {}))
-
-\* a check "replicates" when it hands the replicator a task with at least one candidate node. (With overlapping
-\* rules the code as found keeps calling the replicator with an EMPTY candidate list: a holder remembered from
-\* an earlier rule does not lower the shortage of a later rule - a phantom shortage that copies nothing.)
-Replicates(d) == \E k \in 1..Len(d.tasks) : Len(d.tasks[k].nodes) > 0
-Quiet(hs) == \A n \in hs : LET d == Decide27(n, hs, {}, {}) IN ~Replicates(d) /\ d.del = "none"
-NoTasks(hs) == \A n \in hs : ~Replicates(Decide27(n, hs, {}, {}))
- \* a check "replicates" when it hands the replicator a task with at least one candidate node. (With overlapping
-\* rules the code as found keeps calling the replicator with an EMPTY candidate list: a holder remembered from
-\* an earlier rule does not lower the shortage of a later rule - a phantom shortage that copies nothing.)
-Replicates(d) == \E k \in 1..Len(d.tasks) : Len(d.tasks[k].nodes) > 0
-Quiet(hs) == \A n \in hs : LET d == Decide27(n, hs, {}, {}) IN ~Replicates(d) /\ d.del = "none"
-NoTasks(hs) == \A n \in hs : ~Replicates(Decide27(n, hs, {}, {}))
- \* a check "replicates" when it hands the replicator a task with at least one candidate node. (With overlapping
-\* rules the code as found keeps calling the replicator with an EMPTY candidate list: a holder remembered from
-\* an earlier rule does not lower the shortage of a later rule - a phantom shortage that copies nothing.)
-Replicates(d) == \E k \in 1..Len(d.tasks) : Len(d.tasks[k].nodes) > 0
-Quiet(hs) == \A n \in hs : LET d == Decide27(n, hs, {}, {}) IN ~Replicates(d) /\ d.del = "none"
-NoTasks(hs) == \A n \in hs : ~Replicates(Decide27(n, hs, {}, {}))
- \* a check "replicates" when it hands the replicator a task with at least one candidate node. (With overlapping
-\* rules the code as found keeps calling the replicator with an EMPTY candidate list: a holder remembered from
-\* an earlier rule does not lower the shortage of a later rule - a phantom shortage that copies nothing.)
-Replicates(d) == \E k \in 1..Len(d.tasks) : Len(d.tasks[k].nodes) > 0
-Quiet(hs) == \A n \in hs : LET d == Decide27(n, hs, {}, {}) IN ~Replicates(d) /\ d.del = "none"
-NoTasks(hs) == \A n \in hs : ~Replicates(Decide27(n, hs, {}, {}))
-L\* a check "replicates" when it hands the replicator a task with at least one candidate node. (With overlapping
-\* rules the code as found keeps calling the replicator with an EMPTY candidate list: a holder remembered from
-\* an earlier rule does not lower the shortage of a later rule - a phantom shortage that copies nothing.)
-Replicates(d) == \E k \in 1..Len(d.tasks) : Len(d.tasks[k].nodes) > 0
-Quiet(hs) == \A n \in hs : LET d == Decide27(n, hs, {}, {}) IN ~Replicates(d) /\ d.del = "none"
-NoTasks(hs) == \A n \in hs : ~Replicates(Decide27(n, hs, {}, {}))
-i\* a check "replicates" when it hands the replicator a task with at least one candidate node. (With overlapping
-\* rules the code as found keeps calling the replicator with an EMPTY candidate list: a holder remembered from
-\* an earlier rule does not lower the shortage of a later rule - a phantom shortage that copies nothing.)
-Replicates(d) == \E k \in 1..Len(d.tasks) : Len(d.tasks[k].nodes) > 0
-Quiet(hs) == \A n \in hs : LET d == Decide27(n, hs, {}, {}) IN ~Replicates(d) /\ d.del = "none"
-NoTasks(hs) == \A n \in hs : ~Replicates(Decide27(n, hs, {}, {}))
-v\* a check "replicates" when it hands the replicator a task with at least one candidate node. (With overlapping
-\* rules the code as found keeps calling the replicator with an EMPTY candidate list: a holder remembered from
-\* an earlier rule does not lower the shortage of a later rule - a phantom shortage that copies nothing.)
-Replicates(d) == \E k \in 1..Len(d.tasks) : Len(d.tasks[k].nodes) > 0
-Quiet(hs) == \A n \in hs : LET d == Decide27(n, hs, {}, {}) IN ~Replicates(d) /\ d.del = "none"
-NoTasks(hs) == \A n \in hs : ~Replicates(Decide27(n, hs, {}, {}))
-e\* a check "replicates" when it hands the replicator a task with at least one candidate node. (With overlapping
-\* rules the code as found keeps calling the replicator with an EMPTY candidate list: a holder remembered from
-\* an earlier rule does not lower the shortage of a later rule - a phantom shortage that copies nothing.)
-Replicates(d) == \E k \in 1..Len(d.tasks) : Len(d.tasks[k].nodes) > 0
-Quiet(hs) == \A n \in hs : LET d == Decide27(n, hs, {}, {}) IN ~Replicates(d) /\ d.del = "none"
-NoTasks(hs) == \A n \in hs : ~Replicates(Decide27(n, hs, {}, {}))
-n\* a check "replicates" when it hands the replicator a task with at least one candidate node. (With overlapping
-\* rules the code as found keeps calling the replicator with an EMPTY candidate list: a holder remembered from
-\* an earlier rule does not lower the shortage of a later rule - a phantom shortage that copies nothing.)
-Replicates(d) == \E k \in 1..Len(d.tasks) : Len(d.tasks[k].nodes) > 0
-Quiet(hs) == \A n \in hs : LET d == Decide27(n, hs, {}, {}) IN ~Replicates(d) /\ d.del = "none"
-NoTasks(hs) == \A n \in hs : ~Replicates(Decide27(n, hs, {}, {}))
-e\* a check "replicates" when it hands the replicator a task with at least one candidate node. (With overlapping
-\* rules the code as found keeps calling the replicator with an EMPTY candidate list: a holder remembered from
-\* an earlier rule does not lower the shortage of a later rule - a phantom shortage that copies nothing.)
-Replicates(d) == \E k \in 1..Len(d.tasks) : Len(d.tasks[k].nodes) > 0
-Quiet(hs) == \A n \in hs : LET d == Decide27(n, hs, {}, {}) IN ~Replicates(d) /\ d.del = "none"
-NoTasks(hs) == \A n \in hs : ~Replicates(Decide27(n, hs, {}, {}))
-s\* a check "replicates" when it hands the replicator a task with at least one candidate node. (With overlapping
-\* rules the code as found keeps calling the replicator with an EMPTY candidate list: a holder remembered from
-\* an earlier rule does not lower the shortage of a later rule - a phantom shortage that copies nothing.)
-Replicates(d) == \E k \in 1..Len(d.tasks) : Len(d.tasks[k].nodes) > 0
-Quiet(hs) == \A n \in hs : LET d == Decide27(n, hs, {}, {}) IN ~Replicates(d) /\ d.del = "none"
-NoTasks(hs) == \A n \in hs : ~Replicates(Decide27(n, hs, {}, {}))
-s\* a check "replicates" when it hands the replicator a task with at least one candidate node. (With overlapping
-\* rules the code as found keeps calling the replicator with an EMPTY candidate list: a holder remembered from
-\* an earlier rule does not lower the shortage of a later rule - a phantom shortage that copies nothing.)
-Replicates(d) == \E k \in 1..Len(d.tasks) : Len(d.tasks[k].nodes) > 0
-Quiet(hs) == \A n \in hs : LET d == Decide27(n, hs, {}, {}) IN ~Replicates(d) /\ d.del = "none"
-NoTasks(hs) == \A n \in hs : ~Replicates(Decide27(n, hs, {}, {}))
- \* a check "replicates" when it hands the replicator a task with at least one candidate node. (With overlapping
-\* rules the code as found keeps calling the replicator with an EMPTY candidate list: a holder remembered from
-\* an earlier rule does not lower the shortage of a later rule - a phantom shortage that copies nothing.)
-Replicates(d) == \E k \in 1..Len(d.tasks) : Len(d.tasks[k].nodes) > 0
-Quiet(hs) == \A n \in hs : LET d == Decide27(n, hs, {}, {}) IN ~Replicates(d) /\ d.del = "none"
-NoTasks(hs) == \A n \in hs : ~Replicates(Decide27(n, hs, {}, {}))
-(\* a check "replicates" when it hands the replicator a task with at least one candidate node. (With overlapping
-\* rules the code as found keeps calling the replicator with an EMPTY candidate list: a holder remembered from
-\* an earlier rule does not lower the shortage of a later rule - a phantom shortage that copies nothing.)
-Replicates(d) == \E k \in 1..Len(d.tasks) : Len(d.tasks[k].nodes) > 0
-Quiet(hs) == \A n \in hs : LET d == Decide27(n, hs, {}, {}) IN ~Replicates(d) /\ d.del = "none"
-NoTasks(hs) == \A n \in hs : ~Replicates(Decide27(n, hs, {}, {}))
-s\* a check "replicates" when it hands the replicator a task with at least one candidate node. (With overlapping
-\* rules the code as found keeps calling the replicator with an EMPTY candidate list: a holder remembered from
-\* an earlier rule does not lower the shortage of a later rule - a phantom shortage that copies nothing.)
-Replicates(d) == \E k \in 1..Len(d.tasks) : Len(d.tasks[k].nodes) > 0
-Quiet(hs) == \A n \in hs : LET d == Decide27(n, hs, {}, {}) IN ~Replicates(d) /\ d.del = "none"
-NoTasks(hs) == \A n \in hs : ~Replicates(Decide27(n, hs, {}, {}))
-t\* a check "replicates" when it hands the replicator a task with at least one candidate node. (With overlapping
-\* rules the code as found keeps calling the replicator with an EMPTY candidate list: a holder remembered from
-\* an earlier rule does not lower the shortage of a later rule - a phantom shortage that copies nothing.)
-Replicates(d) == \E k \in 1..Len(d.tasks) : Len(d.tasks[k].nodes) > 0
-Quiet(hs) == \A n \in hs : LET d == Decide27(n, hs, {}, {}) IN ~Replicates(d) /\ d.del = "none"
-NoTasks(hs) == \A n \in hs : ~Replicates(Decide27(n, hs, {}, {}))
-a\* a check "replicates" when it hands the replicator a task with at least one candidate node. (With overlapping
-\* rules the code as found keeps calling the replicator with an EMPTY candidate list: a holder remembered from
-\* an earlier rule does not lower the shortage of a later rule - a phantom shortage that copies nothing.)
-Replicates(d) == \E k \in 1..Len(d.tasks) : Len(d.tasks[k].nodes) > 0
-Quiet(hs) == \A n \in hs : LET d == Decide27(n, hs, {}, {}) IN ~Replicates(d) /\ d.del = "none"
-NoTasks(hs) == \A n \in hs : ~Replicates(Decide27(n, hs, {}, {}))
-b\* a check "replicates" when it hands the replicator a task with at least one candidate node. (With overlapping
-\* rules the code as found keeps calling the replicator with an EMPTY candidate list: a holder remembered from
-\* an earlier rule does not lower the shortage of a later rule - a phantom shortage that copies nothing.)
-Replicates(d) == \E k \in 1..Len(d.tasks) : Len(d.tasks[k].nodes) > 0
-Quiet(hs) == \A n \in hs : LET d == Decide27(n, hs, {}, {}) IN ~Replicates(d) /\ d.del = "none"
-NoTasks(hs) == \A n \in hs : ~Replicates(Decide27(n, hs, {}, {}))
-l\* a check "replicates" when it hands the replicator a task with at least one candidate node. (With overlapping
-\* rules the code as found keeps calling the replicator with an EMPTY candidate list: a holder remembered from
-\* an earlier rule does not lower the shortage of a later rule - a phantom shortage that copies nothing.)
-Replicates(d) == \E k \in 1..Len(d.tasks) : Len(d.tasks[k].nodes) > 0
-Quiet(hs) == \A n \in hs : LET d == Decide27(n, hs, {}, {}) IN ~Replicates(d) /\ d.del = "none"
-NoTasks(hs) == \A n \in hs : ~Replicates(Decide27(n, hs, {}, {}))
-e\* a check "replicates" when it hands the replicator a task with at least one candidate node. (With overlapping
-\* rules the code as found keeps calling the replicator with an EMPTY candidate list: a holder remembered from
-\* an earlier rule does not lower the shortage of a later rule - a phantom shortage that copies nothing.)
-Replicates(d) == \E k \in 1..Len(d.tasks) : Len(d.tasks[k].nodes) > 0
-Quiet(hs) == \A n \in hs : LET d == Decide27(n, hs, {}, {}) IN ~Replicates(d) /\ d.del = "none"
-NoTasks(hs) == \A n \in hs : ~Replicates(Decide27(n, hs, {}, {}))
- \* a check "replicates" when it hands the replicator a task with at least one candidate node. (With overlapping
-\* rules the code as found keeps calling the replicator with an EMPTY candidate list: a holder remembered from
-\* an earlier rule does not lower the shortage of a later rule - a phantom shortage that copies nothing.)
-Replicates(d) == \E k \in 1..Len(d.tasks) : Len(d.tasks[k].nodes) > 0
-Quiet(hs) == \A n \in hs : LET d == Decide27(n, hs, {}, {}) IN ~Replicates(d) /\ d.del = "none"
-NoTasks(hs) == \A n \in hs : ~Replicates(Decide27(n, hs, {}, {}))
-n\* a check "replicates" when it hands the replicator a task with at least one candidate node. (With overlapping
-\* rules the code as found keeps calling the replicator with an EMPTY candidate list: a holder remembered from
-\* an earlier rule does not lower the shortage of a later rule - a phantom shortage that copies nothing.)
-Replicates(d) == \E k \in 1..Len(d.tasks) : Len(d.tasks[k].nodes) > 0
-Quiet(hs) == \A n \in hs : LET d == Decide27(n, hs, {}, {}) IN ~Replicates(d) /\ d.del = "none"
-NoTasks(hs) == \A n \in hs : ~Replicates(Decide27(n, hs, {}, {}))
-e\* a check "replicates" when it hands the replicator a task with at least one candidate node. (With overlapping
-\* rules the code as found keeps calling the replicator with an EMPTY candidate list: a holder remembered from
-\* an earlier rule does not lower the shortage of a later rule - a phantom shortage that copies nothing.)
-Replicates(d) == \E k \in 1..Len(d.tasks) : Len(d.tasks[k].nodes) > 0
-Quiet(hs) == \A n \in hs : LET d == Decide27(n, hs, {}, {}) IN ~Replicates(d) /\ d.del = "none"
-NoTasks(hs) == \A n \in hs : ~Replicates(Decide27(n, hs, {}, {}))
-t\* a check "replicates" when it hands the replicator a task with at least one candidate node. (With overlapping
-\* rules the code as found keeps calling the replicator with an EMPTY candidate list: a holder remembered from
-\* an earlier rule does not lower the shortage of a later rule - a phantom shortage that copies nothing.)
-Replicates(d) == \E k \in 1..Len(d.tasks) : Len(d.tasks[k].nodes) > 0
-Quiet(hs) == \A n \in hs : LET d == Decide27(n, hs, {}, {}) IN ~Replicates(d) /\ d.del = "none"
-NoTasks(hs) == \A n \in hs : ~Replicates(Decide27(n, hs, {}, {}))
-m\* a check "replicates" when it hands the replicator a task with at least one candidate node. (With overlapping
-\* rules the code as found keeps calling the replicator with an EMPTY candidate list: a holder remembered from
-\* an earlier rule does not lower the shortage of a later rule - a phantom shortage that copies nothing.)
-Replicates(d) == \E k \in 1..Len(d.tasks) : Len(d.tasks[k].nodes) > 0
-Quiet(hs) == \A n \in hs : LET d == Decide27(n, hs, {}, {}) IN ~Replicates(d) /\ d.del = "none"
-NoTasks(hs) == \A n \in hs : ~Replicates(Decide27(n, hs, {}, {}))
-a\* a check "replicates" when it hands the replicator a task with at least one candidate node. (With overlapping
-\* rules the code as found keeps calling the replicator with an EMPTY candidate list: a holder remembered from
-\* an earlier rule does not lower the shortage of a later rule - a phantom shortage that copies nothing.)
-Replicates(d) == \E k \in 1..Len(d.tasks) : Len(d.tasks[k].nodes) > 0
-Quiet(hs) == \A n \in hs : LET d == Decide27(n, hs, {}, {}) IN ~Replicates(d) /\ d.del = "none"
-NoTasks(hs) == \A n \in hs : ~Replicates(Decide27(n, hs, {}, {}))
-p\* a check "replicates" when it hands the replicator a task with at least one candidate node. (With overlapping
-\* rules the code as found keeps calling the replicator with an EMPTY candidate list: a holder remembered from
-\* an earlier rule does not lower the shortage of a later rule - a phantom shortage that copies nothing.)
-Replicates(d) == \E k \in 1..Len(d.tasks) : Len(d.tasks[k].nodes) > 0
-Quiet(hs) == \A n \in hs : LET d == Decide27(n, hs, {}, {}) IN ~Replicates(d) /\ d.del = "none"
-NoTasks(hs) == \A n \in hs : ~Replicates(Decide27(n, hs, {}, {}))
-,\* a check "replicates" when it hands the replicator a task with at least one candidate node. (With overlapping
-\* rules the code as found keeps calling the replicator with an EMPTY candidate list: a holder remembered from
-\* an earlier rule does not lower the shortage of a later rule - a phantom shortage that copies nothing.)
-Replicates(d) == \E k \in 1..Len(d.tasks) : Len(d.tasks[k].nodes) > 0
-Quiet(hs) == \A n \in hs : LET d == Decide27(n, hs, {}, {}) IN ~Replicates(d) /\ d.del = "none"
-NoTasks(hs) == \A n \in hs : ~Replicates(Decide27(n, hs, {}, {}))
- \* a check "replicates" when it hands the replicator a task with at least one candidate node. (With overlapping
-\* rules the code as found keeps calling the replicator with an EMPTY candidate list: a holder remembered from
-\* an earlier rule does not lower the shortage of a later rule - a phantom shortage that copies nothing.)
-Replicates(d) == \E k \in 1..Len(d.tasks) : Len(d.tasks[k].nodes) > 0
-Quiet(hs) == \A n \in hs : LET d == Decide27(n, hs, {}, {}) IN ~Replicates(d) /\ d.del = "none"
-NoTasks(hs) == \A n \in hs : ~Replicates(Decide27(n, hs, {}, {}))
-a\* a check "replicates" when it hands the replicator a task with at least one candidate node. (With overlapping
-\* rules the code as found keeps calling the replicator with an EMPTY candidate list: a holder remembered from
-\* an earlier rule does not lower the shortage of a later rule - a phantom shortage that copies nothing.)
-Replicates(d) == \E k \in 1..Len(d.tasks) : Len(d.tasks[k].nodes) > 0
-Quiet(hs) == \A n \in hs : LET d == Decide27(n, hs, {}, {}) IN ~Replicates(d) /\ d.del = "none"
-NoTasks(hs) == \A n \in hs : ~Replicates(Decide27(n, hs, {}, {}))
-l\* a check "replicates" when it hands the replicator a task with at least one candidate node. (With overlapping
-\* rules the code as found keeps calling the replicator with an EMPTY candidate list: a holder remembered from
-\* an earlier rule does not lower the shortage of a later rule - a phantom shortage that copies nothing.)
-Replicates(d) == \E k \in 1..Len(d.tasks) : Len(d.tasks[k].nodes) > 0
-Quiet(hs) == \A n \in hs : LET d == Decide27(n, hs, {}, {}) IN ~Replicates(d) /\ d.del = "none"
-NoTasks(hs) == \A n \in hs : ~Replicates(Decide27(n, hs, {}, {}))
-l\* a check "replicates" when it hands the replicator a task with at least one candidate node. (With overlapping
-\* rules the code as found keeps calling the replicator with an EMPTY candidate list: a holder remembered from
-\* an earlier rule does not lower the shortage of a later rule - a phantom shortage that copies nothing.)
-Replicates(d) == \E k \in 1..Len(d.tasks) : Len(d.tasks[k].nodes) > 0
-Quiet(hs) == \A n \in hs : LET d == Decide27(n, hs, {}, {}) IN ~Replicates(d) /\ d.del = "none"
-NoTasks(hs) == \A n \in hs : ~Replicates(Decide27(n, hs, {}, {}))
- \* a check "replicates" when it hands the replicator a task with at least one candidate node. (With overlapping
-\* rules the code as found keeps calling the replicator with an EMPTY candidate list: a holder remembered from
-\* an earlier rule does not lower the shortage of a later rule - a phantom shortage that copies nothing.)
-Replicates(d) == \E k \in 1..Len(d.tasks) : Len(d.tasks[k].nodes) > 0
-Quiet(hs) == \A n \in hs : LET d == Decide27(n, hs, {}, {}) IN ~Replicates(d) /\ d.del = "none"
-NoTasks(hs) == \A n \in hs : ~Replicates(Decide27(n, hs, {}, {}))
-n\* a check "replicates" when it hands the replicator a task with at least one candidate node. (With overlapping
-\* rules the code as found keeps calling the replicator with an EMPTY candidate list: a holder remembered from
-\* an earlier rule does not lower the shortage of a later rule - a phantom shortage that copies nothing.)
-Replicates(d) == \E k \in 1..Len(d.tasks) : Len(d.tasks[k].nodes) > 0
-Quiet(hs) == \A n \in hs : LET d == Decide27(n, hs, {}, {}) IN ~Replicates(d) /\ d.del = "none"
-NoTasks(hs) == \A n \in hs : ~Replicates(Decide27(n, hs, {}, {}))
-o\* a check "replicates" when it hands the replicator a task with at least one candidate node. (With overlapping
-\* rules the code as found keeps calling the replicator with an EMPTY candidate list: a holder remembered from
-\* an earlier rule does not lower the shortage of a later rule - a phantom shortage that copies nothing.)
-Replicates(d) == \E k \in 1..Len(d.tasks) : Len(d.tasks[k].nodes) > 0
-Quiet(hs) == \A n \in hs : LET d == Decide27(n, hs, {}, {}) IN ~Replicates(d) /\ d.del = "none"
-NoTasks(hs) == \A n \in hs : ~Replicates(Decide27(n, hs, {}, {}))
-d\* a check "replicates" when it hands the replicator a task with at least one candidate node. (With overlapping
-\* rules the code as found keeps calling the replicator with an EMPTY candidate list: a holder remembered from
-\* an earlier rule does not lower the shortage of a later rule - a phantom shortage that copies nothing.)
-Replicates(d) == \E k \in 1..Len(d.tasks) : Len(d.tasks[k].nodes) > 0
-Quiet(hs) == \A n \in hs : LET d == Decide27(n, hs, {}, {}) IN ~Replicates(d) /\ d.del = "none"
-NoTasks(hs) == \A n \in hs : ~Replicates(Decide27(n, hs, {}, {}))
-e\* a check "replicates" when it hands the replicator a task with at least one candidate node. (With overlapping
-\* rules the code as found keeps calling the replicator with an EMPTY candidate list: a holder remembered from
-\* an earlier rule does not lower the shortage of a later rule - a phantom shortage that copies nothing.)
-Replicates(d) == \E k \in 1..Len(d.tasks) : Len(d.tasks[k].nodes) > 0
-Quiet(hs) == \A n \in hs : LET d == Decide27(n, hs, {}, {}) IN ~Replicates(d) /\ d.del = "none"
-NoTasks(hs) == \A n \in hs : ~Replicates(Decide27(n, hs, {}, {}))
-s\* a check "replicates" when it hands the replicator a task with at least one candidate node. (With overlapping
-\* rules the code as found keeps calling the replicator with an EMPTY candidate list: a holder remembered from
-\* an earlier rule does not lower the shortage of a later rule - a phantom shortage that copies nothing.)
-Replicates(d) == \E k \in 1..Len(d.tasks) : Len(d.tasks[k].nodes) > 0
-Quiet(hs) == \A n \in hs : LET d == Decide27(n, hs, {}, {}) IN ~Replicates(d) /\ d.del = "none"
-NoTasks(hs) == \A n \in hs : ~Replicates(Decide27(n, hs, {}, {}))
- \* a check "replicates" when it hands the replicator a task with at least one candidate node. (With overlapping
-\* rules the code as found keeps calling the replicator with an EMPTY candidate list: a holder remembered from
-\* an earlier rule does not lower the shortage of a later rule - a phantom shortage that copies nothing.)
-Replicates(d) == \E k \in 1..Len(d.tasks) : Len(d.tasks[k].nodes) > 0
-Quiet(hs) == \A n \in hs : LET d == Decide27(n, hs, {}, {}) IN ~Replicates(d) /\ d.del = "none"
-NoTasks(hs) == \A n \in hs : ~Replicates(Decide27(n, hs, {}, {}))
-r\* a check "replicates" when it hands the replicator a task with at least one candidate node. (With overlapping
-\* rules the code as found keeps calling the replicator with an EMPTY candidate list: a holder remembered from
-\* an earlier rule does not lower the shortage of a later rule - a phantom shortage that copies nothing.)
-Replicates(d) == \E k \in 1..Len(d.tasks) : Len(d.tasks[k].nodes) > 0
-Quiet(hs) == \A n \in hs : LET d == Decide27(n, hs, {}, {}) IN ~Replicates(d) /\ d.del = "none"
-NoTasks(hs) == \A n \in hs : ~Replicates(Decide27(n, hs, {}, {}))
-e\* a check "replicates" when it hands the replicator a task with at least one candidate node. (With overlapping
-\* rules the code as found keeps calling the replicator with an EMPTY candidate list: a holder remembered from
-\* an earlier rule does not lower the shortage of a later rule - a phantom shortage that copies nothing.)
-Replicates(d) == \E k \in 1..Len(d.tasks) : Len(d.tasks[k].nodes) > 0
-Quiet(hs) == \A n \in hs : LET d == Decide27(n, hs, {}, {}) IN ~Replicates(d) /\ d.del = "none"
-NoTasks(hs) == \A n \in hs : ~Replicates(Decide27(n, hs, {}, {}))
-a\* a check "replicates" when it hands the replicator a task with at least one candidate node. (With overlapping
-\* rules the code as found keeps calling the replicator with an EMPTY candidate list: a holder remembered from
-\* an earlier rule does not lower the shortage of a later rule - a phantom shortage that copies nothing.)
-Replicates(d) == \E k \in 1..Len(d.tasks) : Len(d.tasks[k].nodes) > 0
-Quiet(hs) == \A n \in hs : LET d == Decide27(n, hs, {}, {}) IN ~Replicates(d) /\ d.del = "none"
-NoTasks(hs) == \A n \in hs : ~Replicates(Decide27(n, hs, {}, {}))
-c\* a check "replicates" when it hands the replicator a task with at least one candidate node. (With overlapping
-\* rules the code as found keeps calling the replicator with an EMPTY candidate list: a holder remembered from
-\* an earlier rule does not lower the shortage of a later rule - a phantom shortage that copies nothing.)
-Replicates(d) == \E k \in 1..Len(d.tasks) : Len(d.tasks[k].nodes) > 0
-Quiet(hs) == \A n \in hs : LET d == Decide27(n, hs, {}, {}) IN ~Replicates(d) /\ d.del = "none"
-NoTasks(hs) == \A n \in hs : ~Replicates(Decide27(n, hs, {}, {}))
-h\* a check "replicates" when it hands the replicator a task with at least one candidate node. (With overlapping
-\* rules the code as found keeps calling the replicator with an EMPTY candidate list: a holder remembered from
-\* an earlier rule does not lower the shortage of a later rule - a phantom shortage that copies nothing.)
-Replicates(d) == \E k \in 1..Len(d.tasks) : Len(d.tasks[k].nodes) > 0
-Quiet(hs) == \A n \in hs : LET d == Decide27(n, hs, {}, {}) IN ~Replicates(d) /\ d.del = "none"
-NoTasks(hs) == \A n \in hs : ~Replicates(Decide27(n, hs, {}, {}))
-a\* a check "replicates" when it hands the replicator a task with at least one candidate node. (With overlapping
-\* rules the code as found keeps calling the replicator with an EMPTY candidate list: a holder remembered from
-\* an earlier rule does not lower the shortage of a later rule - a phantom shortage that copies nothing.)
-Replicates(d) == \E k \in 1..Len(d.tasks) : Len(d.tasks[k].nodes) > 0
-Quiet(hs) == \A n \in hs : LET d == Decide27(n, hs, {}, {}) IN ~Replicates(d) /\ d.del = "none"
-NoTasks(hs) == \A n \in hs : ~Replicates(Decide27(n, hs, {}, {}))
-b\* a check "replicates" when it hands the replicator a task with at least one candidate node. (With overlapping
-\* rules the code as found keeps calling the replicator with an EMPTY candidate list: a holder remembered from
-\* an earlier rule does not lower the shortage of a later rule - a phantom shortage that copies nothing.)
-Replicates(d) == \E k \in 1..Len(d.tasks) : Len(d.tasks[k].nodes) > 0
-Quiet(hs) == \A n \in hs : LET d == Decide27(n, hs, {}, {}) IN ~Replicates(d) /\ d.del = "none"
-NoTasks(hs) == \A n \in hs : ~Replicates(Decide27(n, hs, {}, {}))
-l\* a check "replicates" when it hands the replicator a task with at least one candidate node. (With overlapping
-\* rules the code as found keeps calling the replicator with an EMPTY candidate list: a holder remembered from
-\* an earlier rule does not lower the shortage of a later rule - a phantom shortage that copies nothing.)
-Replicates(d) == \E k \in 1..Len(d.tasks) : Len(d.tasks[k].nodes) > 0
-Quiet(hs) == \A n \in hs : LET d == Decide27(n, hs, {}, {}) IN ~Replicates(d) /\ d.del = "none"
-NoTasks(hs) == \A n \in hs : ~Replicates(Decide27(n, hs, {}, {}))
-e\* a check "replicates" when it hands the replicator a task with at least one candidate node. (With overlapping
-\* rules the code as found keeps calling the replicator with an EMPTY candidate list: a holder remembered from
-\* an earlier rule does not lower the shortage of a later rule - a phantom shortage that copies nothing.)
-Replicates(d) == \E k \in 1..Len(d.tasks) : Len(d.tasks[k].nodes) > 0
-Quiet(hs) == \A n \in hs : LET d == Decide27(n, hs, {}, {}) IN ~Replicates(d) /\ d.del = "none"
-NoTasks(hs) == \A n \in hs : ~Replicates(Decide27(n, hs, {}, {}))
-,\* a check "replicates" when it hands the replicator a task with at least one candidate node. (With overlapping
-\* rules the code as found keeps calling the replicator with an EMPTY candidate list: a holder remembered from
-\* an earlier rule does not lower the shortage of a later rule - a phantom shortage that copies nothing.)
-Replicates(d) == \E k \in 1..Len(d.tasks) : Len(d.tasks[k].nodes) > 0
-Quiet(hs) == \A n \in hs : LET d == Decide27(n, hs, {}, {}) IN ~Replicates(d) /\ d.del = "none"
-NoTasks(hs) == \A n \in hs : ~Replicates(Decide27(n, hs, {}, {}))
- \* a check "replicates" when it hands the replicator a task with at least one candidate node. (With overlapping
-\* rules the code as found keeps calling the replicator with an EMPTY candidate list: a holder remembered from
-\* an earlier rule does not lower the shortage of a later rule - a phantom shortage that copies nothing.)
-Replicates(d) == \E k \in 1..Len(d.tasks) : Len(d.tasks[k].nodes) > 0
-Quiet(hs) == \A n \in hs : LET d == Decide27(n, hs, {}, {}) IN ~Replicates(d) /\ d.del = "none"
-NoTasks(hs) == \A n \in hs : ~Replicates(Decide27(n, hs, {}, {}))
-w\* a check "replicates" when it hands the replicator a task with at least one candidate node. (With overlapping
-\* rules the code as found keeps calling the replicator with an EMPTY candidate list: a holder remembered from
-\* an earlier rule does not lower the shortage of a later rule - a phantom shortage that copies nothing.)
-Replicates(d) == \E k \in 1..Len(d.tasks) : Len(d.tasks[k].nodes) > 0
-Quiet(hs) == \A n \in hs : LET d == Decide27(n, hs, {}, {}) IN ~Replicates(d) /\ d.del = "none"
-NoTasks(hs) == \A n \in hs : ~Replicates(Decide27(n, hs, {}, {}))
-e\* a check "replicates" when it hands the replicator a task with at least one candidate node. (With overlapping
-\* rules the code as found keeps calling the replicator with an EMPTY candidate list: a holder remembered from
-\* an earlier rule does not lower the shortage of a later rule - a phantom shortage that copies nothing.)
-Replicates(d) == \E k \in 1..Len(d.tasks) : Len(d.tasks[k].nodes) > 0
-Quiet(hs) == \A n \in hs : LET d == Decide27(n, hs, {}, {}) IN ~Replicates(d) /\ d.del = "none"
-NoTasks(hs) == \A n \in hs : ~Replicates(Decide27(n, hs, {}, {}))
-a\* a check "replicates" when it hands the replicator a task with at least one candidate node. (With overlapping
-\* rules the code as found keeps calling the replicator with an EMPTY candidate list: a holder remembered from
-\* an earlier rule does not lower the shortage of a later rule - a phantom shortage that copies nothing.)
-Replicates(d) == \E k \in 1..Len(d.tasks) : Len(d.tasks[k].nodes) > 0
-Quiet(hs) == \A n \in hs : LET d == Decide27(n, hs, {}, {}) IN ~Replicates(d) /\ d.del = "none"
-NoTasks(hs) == \A n \in hs : ~Replicates(Decide27(n, hs, {}, {}))
-k\* a check "replicates" when it hands the replicator a task with at least one candidate node. (With overlapping
-\* rules the code as found keeps calling the replicator with an EMPTY candidate list: a holder remembered from
-\* an earlier rule does not lower the shortage of a later rule - a phantom shortage that copies nothing.)
-Replicates(d) == \E k \in 1..Len(d.tasks) : Len(d.tasks[k].nodes) > 0
-Quiet(hs) == \A n \in hs : LET d == Decide27(n, hs, {}, {}) IN ~Replicates(d) /\ d.del = "none"
-NoTasks(hs) == \A n \in hs : ~Replicates(Decide27(n, hs, {}, {}))
- \* a check "replicates" when it hands the replicator a task with at least one candidate node. (With overlapping
-\* rules the code as found keeps calling the replicator with an EMPTY candidate list: a holder remembered from
-\* an earlier rule does not lower the shortage of a later rule - a phantom shortage that copies nothing.)
-Replicates(d) == \E k \in 1..Len(d.tasks) : Len(d.tasks[k].nodes) > 0
-Quiet(hs) == \A n \in hs : LET d == Decide27(n, hs, {}, {}) IN ~Replicates(d) /\ d.del = "none"
-NoTasks(hs) == \A n \in hs : ~Replicates(Decide27(n, hs, {}, {}))
-f\* a check "replicates" when it hands the replicator a task with at least one candidate node. (With overlapping
-\* rules the code as found keeps calling the replicator with an EMPTY candidate list: a holder remembered from
-\* an earlier rule does not lower the shortage of a later rule - a phantom shortage that copies nothing.)
-Replicates(d) == \E k \in 1..Len(d.tasks) : Len(d.tasks[k].nodes) > 0
-Quiet(hs) == \A n \in hs : LET d == Decide27(n, hs, {}, {}) IN ~Replicates(d) /\ d.del = "none"
-NoTasks(hs) == \A n \in hs : ~Replicates(Decide27(n, hs, {}, {}))
-a\* a check "replicates" when it hands the replicator a task with at least one candidate node. (With overlapping
-\* rules the code as found keeps calling the replicator with an EMPTY candidate list: a holder remembered from
-\* an earlier rule does not lower the shortage of a later rule - a phantom shortage that copies nothing.)
-Replicates(d) == \E k \in 1..Len(d.tasks) : Len(d.tasks[k].nodes) > 0
-Quiet(hs) == \A n \in hs : LET d == Decide27(n, hs, {}, {}) IN ~Replicates(d) /\ d.del = "none"
-NoTasks(hs) == \A n \in hs : ~Replicates(Decide27(n, hs, {}, {}))
-i\* a check "replicates" when it hands the replicator a task with at least one candidate node. (With overlapping
-\* rules the code as found keeps calling the replicator with an EMPTY candidate list: a holder remembered from
-\* an earlier rule does not lower the shortage of a later rule - a phantom shortage that copies nothing.)
-Replicates(d) == \E k \in 1..Len(d.tasks) : Len(d.tasks[k].nodes) > 0
-Quiet(hs) == \A n \in hs : LET d == Decide27(n, hs, {}, {}) IN ~Replicates(d) /\ d.del = "none"
-NoTasks(hs) == \A n \in hs : ~Replicates(Decide27(n, hs, {}, {}))
-r\* a check "replicates" when it hands the replicator a task with at least one candidate node. (With overlapping
-\* rules the code as found keeps calling the replicator with an EMPTY candidate list: a holder remembered from
-\* an earlier rule does not lower the shortage of a later rule - a phantom shortage that copies nothing.)
-Replicates(d) == \E k \in 1..Len(d.tasks) : Len(d.tasks[k].nodes) > 0
-Quiet(hs) == \A n \in hs : LET d == Decide27(n, hs, {}, {}) IN ~Replicates(d) /\ d.del = "none"
-NoTasks(hs) == \A n \in hs : ~Replicates(Decide27(n, hs, {}, {}))
-n\* a check "replicates" when it hands the replicator a task with at least one candidate node. (With overlapping
-\* rules the code as found keeps calling the replicator with an EMPTY candidate list: a holder remembered from
-\* an earlier rule does not lower the shortage of a later rule - a phantom shortage that copies nothing.)
-Replicates(d) == \E k \in 1..Len(d.tasks) : Len(d.tasks[k].nodes) > 0
-Quiet(hs) == \A n \in hs : LET d == Decide27(n, hs, {}, {}) IN ~Replicates(d) /\ d.del = "none"
-NoTasks(hs) == \A n \in hs : ~Replicates(Decide27(n, hs, {}, {}))
-e\* a check "replicates" when it hands the replicator a task with at least one candidate node. (With overlapping
-\* rules the code as found keeps calling the replicator with an EMPTY candidate list: a holder remembered from
-\* an earlier rule does not lower the shortage of a later rule - a phantom shortage that copies nothing.)
-Replicates(d) == \E k \in 1..Len(d.tasks) : Len(d.tasks[k].nodes) > 0
-Quiet(hs) == \A n \in hs : LET d == Decide27(n, hs, {}, {}) IN ~Replicates(d) /\ d.del = "none"
-NoTasks(hs) == \A n \in hs : ~Replicates(Decide27(n, hs, {}, {}))
-s\* a check "replicates" when it hands the replicator a task with at least one candidate node. (With overlapping
-\* rules the code as found keeps calling the replicator with an EMPTY candidate list: a holder remembered from
-\* an earlier rule does not lower the shortage of a later rule - a phantom shortage that copies nothing.)
-Replicates(d) == \E k \in 1..Len(d.tasks) : Len(d.tasks[k].nodes) > 0
-Quiet(hs) == \A n \in hs : LET d == Decide27(n, hs, {}, {}) IN ~Replicates(d) /\ d.del = "none"
-NoTasks(hs) == \A n \in hs : ~Replicates(Decide27(n, hs, {}, {}))
-s\* a check "replicates" when it hands the replicator a task with at least one candidate node. (With overlapping
-\* rules the code as found keeps calling the replicator with an EMPTY candidate list: a holder remembered from
-\* an earlier rule does not lower the shortage of a later rule - a phantom shortage that copies nothing.)
-Replicates(d) == \E k \in 1..Len(d.tasks) : Len(d.tasks[k].nodes) > 0
-Quiet(hs) == \A n \in hs : LET d == Decide27(n, hs, {}, {}) IN ~Replicates(d) /\ d.del = "none"
-NoTasks(hs) == \A n \in hs : ~Replicates(Decide27(n, hs, {}, {}))
- \* a check "replicates" when it hands the replicator a task with at least one candidate node. (With overlapping
-\* rules the code as found keeps calling the replicator with an EMPTY candidate list: a holder remembered from
-\* an earlier rule does not lower the shortage of a later rule - a phantom shortage that copies nothing.)
-Replicates(d) == \E k \in 1..Len(d.tasks) : Len(d.tasks[k].nodes) > 0
-Quiet(hs) == \A n \in hs : LET d == Decide27(n, hs, {}, {}) IN ~Replicates(d) /\ d.del = "none"
-NoTasks(hs) == \A n \in hs : ~Replicates(Decide27(n, hs, {}, {}))
-o\* a check "replicates" when it hands the replicator a task with at least one candidate node. (With overlapping
-\* rules the code as found keeps calling the replicator with an EMPTY candidate list: a holder remembered from
-\* an earlier rule does not lower the shortage of a later rule - a phantom shortage that copies nothing.)
-Replicates(d) == \E k \in 1..Len(d.tasks) : Len(d.tasks[k].nodes) > 0
-Quiet(hs) == \A n \in hs : LET d == Decide27(n, hs, {}, {}) IN ~Replicates(d) /\ d.del = "none"
-NoTasks(hs) == \A n \in hs : ~Replicates(Decide27(n, hs, {}, {}))
-n\* a check "replicates" when it hands the replicator a task with at least one candidate node. (With overlapping
-\* rules the code as found keeps calling the replicator with an EMPTY candidate list: a holder remembered from
-\* an earlier rule does not lower the shortage of a later rule - a phantom shortage that copies nothing.)
-Replicates(d) == \E k \in 1..Len(d.tasks) : Len(d.tasks[k].nodes) > 0
-Quiet(hs) == \A n \in hs : LET d == Decide27(n, hs, {}, {}) IN ~Replicates(d) /\ d.del = "none"
-NoTasks(hs) == \A n \in hs : ~Replicates(Decide27(n, hs, {}, {}))
- \* a check "replicates" when it hands the replicator a task with at least one candidate node. (With overlapping
-\* rules the code as found keeps calling the replicator with an EMPTY candidate list: a holder remembered from
-\* an earlier rule does not lower the shortage of a later rule - a phantom shortage that copies nothing.)
-Replicates(d) == \E k \in 1..Len(d.tasks) : Len(d.tasks[k].nodes) > 0
-Quiet(hs) == \A n \in hs : LET d == Decide27(n, hs, {}, {}) IN ~Replicates(d) /\ d.del = "none"
-NoTasks(hs) == \A n \in hs : ~Replicates(Decide27(n, hs, {}, {}))
-e\* a check "replicates" when it hands the replicator a task with at least one candidate node. (With overlapping
-\* rules the code as found keeps calling the replicator with an EMPTY candidate list: a holder remembered from
-\* an earlier rule does not lower the shortage of a later rule - a phantom shortage that copies nothing.)
-Replicates(d) == \E k \in 1..Len(d.tasks) : Len(d.tasks[k].nodes) > 0
-Quiet(hs) == \A n \in hs : LET d == Decide27(n, hs, {}, {}) IN ~Replicates(d) /\ d.del = "none"
-NoTasks(hs) == \A n \in hs : ~Replicates(Decide27(n, hs, {}, {}))
-v\* a check "replicates" when it hands the replicator a task with at least one candidate node. (With overlapping
-\* rules the code as found keeps calling the replicator with an EMPTY candidate list: a holder remembered from
-\* an earlier rule does not lower the shortage of a later rule - a phantom shortage that copies nothing.)
-Replicates(d) == \E k \in 1..Len(d.tasks) : Len(d.tasks[k].nodes) > 0
-Quiet(hs) == \A n \in hs : LET d == Decide27(n, hs, {}, {}) IN ~Replicates(d) /\ d.del = "none"
-NoTasks(hs) == \A n \in hs : ~Replicates(Decide27(n, hs, {}, {}))
-e\* a check "replicates" when it hands the replicator a task with at least one candidate node. (With overlapping
-\* rules the code as found keeps calling the replicator with an EMPTY candidate list: a holder remembered from
-\* an earlier rule does not lower the shortage of a later rule - a phantom shortage that copies nothing.)
-Replicates(d) == \E k \in 1..Len(d.tasks) : Len(d.tasks[k].nodes) > 0
-Quiet(hs) == \A n \in hs : LET d == Decide27(n, hs, {}, {}) IN ~Replicates(d) /\ d.del = "none"
-NoTasks(hs) == \A n \in hs : ~Replicates(Decide27(n, hs, {}, {}))
-r\* a check "replicates" when it hands the replicator a task with at least one candidate node. (With overlapping
-\* rules the code as found keeps calling the replicator with an EMPTY candidate list: a holder remembered from
-\* an earlier rule does not lower the shortage of a later rule - a phantom shortage that copies nothing.)
-Replicates(d) == \E k \in 1..Len(d.tasks) : Len(d.tasks[k].nodes) > 0
-Quiet(hs) == \A n \in hs : LET d == Decide27(n, hs, {}, {}) IN ~Replicates(d) /\ d.del = "none"
-NoTasks(hs) == \A n \in hs : ~Replicates(Decide27(n, hs, {}, {}))
-y\* a check "replicates" when it hands the replicator a task with at least one candidate node. (With overlapping
-\* rules the code as found keeps calling the replicator with an EMPTY candidate list: a holder remembered from
-\* an earlier rule does not lower the shortage of a later rule - a phantom shortage that copies nothing.)
-Replicates(d) == \E k \in 1..Len(d.tasks) : Len(d.tasks[k].nodes) > 0
-Quiet(hs) == \A n \in hs : LET d == Decide27(n, hs, {}, {}) IN ~Replicates(d) /\ d.del = "none"
-NoTasks(hs) == \A n \in hs : ~Replicates(Decide27(n, hs, {}, {}))
- \* a check "replicates" when it hands the replicator a task with at least one candidate node. (With overlapping
-\* rules the code as found keeps calling the replicator with an EMPTY candidate list: a holder remembered from
-\* an earlier rule does not lower the shortage of a later rule - a phantom shortage that copies nothing.)
-Replicates(d) == \E k \in 1..Len(d.tasks) : Len(d.tasks[k].nodes) > 0
-Quiet(hs) == \A n \in hs : LET d == Decide27(n, hs, {}, {}) IN ~Replicates(d) /\ d.del = "none"
-NoTasks(hs) == \A n \in hs : ~Replicates(Decide27(n, hs, {}, {}))
-n\* a check "replicates" when it hands the replicator a task with at least one candidate node. (With overlapping
-\* rules the code as found keeps calling the replicator with an EMPTY candidate list: a holder remembered from
-\* an earlier rule does not lower the shortage of a later rule - a phantom shortage that copies nothing.)
-Replicates(d) == \E k \in 1..Len(d.tasks) : Len(d.tasks[k].nodes) > 0
-Quiet(hs) == \A n \in hs : LET d == Decide27(n, hs, {}, {}) IN ~Replicates(d) /\ d.del = "none"
-NoTasks(hs) == \A n \in hs : ~Replicates(Decide27(n, hs, {}, {}))
-o\* a check "replicates" when it hands the replicator a task with at least one candidate node. (With overlapping
-\* rules the code as found keeps calling the replicator with an EMPTY candidate list: a holder remembered from
-\* an earlier rule does not lower the shortage of a later rule - a phantom shortage that copies nothing.)
-Replicates(d) == \E k \in 1..Len(d.tasks) : Len(d.tasks[k].nodes) > 0
-Quiet(hs) == \A n \in hs : LET d == Decide27(n, hs, {}, {}) IN ~Replicates(d) /\ d.del = "none"
-NoTasks(hs) == \A n \in hs : ~Replicates(Decide27(n, hs, {}, {}))
-d\* a check "replicates" when it hands the replicator a task with at least one candidate node. (With overlapping
-\* rules the code as found keeps calling the replicator with an EMPTY candidate list: a holder remembered from
-\* an earlier rule does not lower the shortage of a later rule - a phantom shortage that copies nothing.)
-Replicates(d) == \E k \in 1..Len(d.tasks) : Len(d.tasks[k].nodes) > 0
-Quiet(hs) == \A n \in hs : LET d == Decide27(n, hs, {}, {}) IN ~Replicates(d) /\ d.del = "none"
-NoTasks(hs) == \A n \in hs : ~Replicates(Decide27(n, hs, {}, {}))
-e\* a check "replicates" when it hands the replicator a task with at least one candidate node. (With overlapping
-\* rules the code as found keeps calling the replicator with an EMPTY candidate list: a holder remembered from
-\* an earlier rule does not lower the shortage of a later rule - a phantom shortage that copies nothing.)
-Replicates(d) == \E k \in 1..Len(d.tasks) : Len(d.tasks[k].nodes) > 0
-Quiet(hs) == \A n \in hs : LET d == Decide27(n, hs, {}, {}) IN ~Replicates(d) /\ d.del = "none"
-NoTasks(hs) == \A n \in hs : ~Replicates(Decide27(n, hs, {}, {}))
-'\* a check "replicates" when it hands the replicator a task with at least one candidate node. (With overlapping
-\* rules the code as found keeps calling the replicator with an EMPTY candidate list: a holder remembered from
-\* an earlier rule does not lower the shortage of a later rule - a phantom shortage that copies nothing.)
-Replicates(d) == \E k \in 1..Len(d.tasks) : Len(d.tasks[k].nodes) > 0
-Quiet(hs) == \A n \in hs : LET d == Decide27(n, hs, {}, {}) IN ~Replicates(d) /\ d.del = "none"
-NoTasks(hs) == \A n \in hs : ~Replicates(Decide27(n, hs, {}, {}))
-s\* a check "replicates" when it hands the replicator a task with at least one candidate node. (With overlapping
-\* rules the code as found keeps calling the replicator with an EMPTY candidate list: a holder remembered from
-\* an earlier rule does not lower the shortage of a later rule - a phantom shortage that copies nothing.)
-Replicates(d) == \E k \in 1..Len(d.tasks) : Len(d.tasks[k].nodes) > 0
-Quiet(hs) == \A n \in hs : LET d == Decide27(n, hs, {}, {}) IN ~Replicates(d) /\ d.del = "none"
-NoTasks(hs) == \A n \in hs : ~Replicates(Decide27(n, hs, {}, {}))
- \* a check "replicates" when it hands the replicator a task with at least one candidate node. (With overlapping
-\* rules the code as found keeps calling the replicator with an EMPTY candidate list: a holder remembered from
-\* an earlier rule does not lower the shortage of a later rule - a phantom shortage that copies nothing.)
-Replicates(d) == \E k \in 1..Len(d.tasks) : Len(d.tasks[k].nodes) > 0
-Quiet(hs) == \A n \in hs : LET d == Decide27(n, hs, {}, {}) IN ~Replicates(d) /\ d.del = "none"
-NoTasks(hs) == \A n \in hs : ~Replicates(Decide27(n, hs, {}, {}))
-c\* a check "replicates" when it hands the replicator a task with at least one candidate node. (With overlapping
-\* rules the code as found keeps calling the replicator with an EMPTY candidate list: a holder remembered from
-\* an earlier rule does not lower the shortage of a later rule - a phantom shortage that copies nothing.)
-Replicates(d) == \E k \in 1..Len(d.tasks) : Len(d.tasks[k].nodes) > 0
-Quiet(hs) == \A n \in hs : LET d == Decide27(n, hs, {}, {}) IN ~Replicates(d) /\ d.del = "none"
-NoTasks(hs) == \A n \in hs : ~Replicates(Decide27(n, hs, {}, {}))
-h\* a check "replicates" when it hands the replicator a task with at least one candidate node. (With overlapping
-\* rules the code as found keeps calling the replicator with an EMPTY candidate list: a holder remembered from
-\* an earlier rule does not lower the shortage of a later rule - a phantom shortage that copies nothing.)
-Replicates(d) == \E k \in 1..Len(d.tasks) : Len(d.tasks[k].nodes) > 0
-Quiet(hs) == \A n \in hs : LET d == Decide27(n, hs, {}, {}) IN ~Replicates(d) /\ d.del = "none"
-NoTasks(hs) == \A n \in hs : ~Replicates(Decide27(n, hs, {}, {}))
-e\* a check "replicates" when it hands the replicator a task with at least one candidate node. (With overlapping
-\* rules the code as found keeps calling the replicator with an EMPTY candidate list: a holder remembered from
-\* an earlier rule does not lower the shortage of a later rule - a phantom shortage that copies nothing.)
-Replicates(d) == \E k \in 1..Len(d.tasks) : Len(d.tasks[k].nodes) > 0
-Quiet(hs) == \A n \in hs : LET d == Decide27(n, hs, {}, {}) IN ~Replicates(d) /\ d.del = "none"
-NoTasks(hs) == \A n \in hs : ~Replicates(Decide27(n, hs, {}, {}))
-c\* a check "replicates" when it hands the replicator a task with at least one candidate node. (With overlapping
-\* rules the code as found keeps calling the replicator with an EMPTY candidate list: a holder remembered from
-\* an earlier rule does not lower the shortage of a later rule - a phantom shortage that copies nothing.)
-Replicates(d) == \E k \in 1..Len(d.tasks) : Len(d.tasks[k].nodes) > 0
-Quiet(hs) == \A n \in hs : LET d == Decide27(n, hs, {}, {}) IN ~Replicates(d) /\ d.del = "none"
-NoTasks(hs) == \A n \in hs : ~Replicates(Decide27(n, hs, {}, {}))
-k\* a check "replicates" when it hands the replicator a task with at least one candidate node. (With overlapping
-\* rules the code as found keeps calling the replicator with an EMPTY candidate list: a holder remembered from
-\* an earlier rule does not lower the shortage of a later rule - a phantom shortage that copies nothing.)
-Replicates(d) == \E k \in 1..Len(d.tasks) : Len(d.tasks[k].nodes) > 0
-Quiet(hs) == \A n \in hs : LET d == Decide27(n, hs, {}, {}) IN ~Replicates(d) /\ d.del = "none"
-NoTasks(hs) == \A n \in hs : ~Replicates(Decide27(n, hs, {}, {}))
-)\* a check "replicates" when it hands the replicator a task with at least one candidate node. (With overlapping
-\* rules the code as found keeps calling the replicator with an EMPTY candidate list: a holder remembered from
-\* an earlier rule does not lower the shortage of a later rule - a phantom shortage that copies nothing.)
-Replicates(d) == \E k \in 1..Len(d.tasks) : Len(d.tasks[k].nodes) > 0
-Quiet(hs) == \A n \in hs : LET d == Decide27(n, hs, {}, {}) IN ~Replicates(d) /\ d.del = "none"
-NoTasks(hs) == \A n \in hs : ~Replicates(Decide27(n, hs, {}, {}))
-:\* a check "replicates" when it hands the replicator a task with at least one candidate node. (With overlapping
-\* rules the code as found keeps calling the replicator with an EMPTY candidate list: a holder remembered from
-\* an earlier rule does not lower the shortage of a later rule - a phantom shortage that copies nothing.)
-Replicates(d) == \E k \in 1..Len(d.tasks) : Len(d.tasks[k].nodes) > 0
-Quiet(hs) == \A n \in hs : LET d == Decide27(n, hs, {}, {}) IN ~Replicates(d) /\ d.del = "none"
-NoTasks(hs) == \A n \in hs : ~Replicates(Decide27(n, hs, {}, {}))
-
-\* a check "replicates" when it hands the replicator a task with at least one candidate node. (With overlapping
-\* rules the code as found keeps calling the replicator with an EMPTY candidate list: a holder remembered from
-\* an earlier rule does not lower the shortage of a later rule - a phantom shortage that copies nothing.)
-Replicates(d) == \E k \in 1..Len(d.tasks) : Len(d.tasks[k].nodes) > 0
-Quiet(hs) == \A n \in hs : LET d == Decide27(n, hs, {}, {}) IN ~Replicates(d) /\ d.del = "none"
-NoTasks(hs) == \A n \in hs : ~Replicates(Decide27(n, hs, {}, {}))
- \* a check "replicates" when it hands the replicator a task with at least one candidate node. (With overlapping
-\* rules the code as found keeps calling the replicator with an EMPTY candidate list: a holder remembered from
-\* an earlier rule does not lower the shortage of a later rule - a phantom shortage that copies nothing.)
-Replicates(d) == \E k \in 1..Len(d.tasks) : Len(d.tasks[k].nodes) > 0
-Quiet(hs) == \A n \in hs : LET d == Decide27(n, hs, {}, {}) IN ~Replicates(d) /\ d.del = "none"
-NoTasks(hs) == \A n \in hs : ~Replicates(Decide27(n, hs, {}, {}))
- \* a check "replicates" when it hands the replicator a task with at least one candidate node. (With overlapping
-\* rules the code as found keeps calling the replicator with an EMPTY candidate list: a holder remembered from
-\* an earlier rule does not lower the shortage of a later rule - a phantom shortage that copies nothing.)
-Replicates(d) == \E k \in 1..Len(d.tasks) : Len(d.tasks[k].nodes) > 0
-Quiet(hs) == \A n \in hs : LET d == Decide27(n, hs, {}, {}) IN ~Replicates(d) /\ d.del = "none"
-NoTasks(hs) == \A n \in hs : ~Replicates(Decide27(n, hs, {}, {}))
- \* a check "replicates" when it hands the replicator a task with at least one candidate node. (With overlapping
-\* rules the code as found keeps calling the replicator with an EMPTY candidate list: a holder remembered from
-\* an earlier rule does not lower the shortage of a later rule - a phantom shortage that copies nothing.)
-Replicates(d) == \E k \in 1..Len(d.tasks) : Len(d.tasks[k].nodes) > 0
-Quiet(hs) == \A n \in hs : LET d == Decide27(n, hs, {}, {}) IN ~Replicates(d) /\ d.del = "none"
-NoTasks(hs) == \A n \in hs : ~Replicates(Decide27(n, hs, {}, {}))
- \* a check "replicates" when it hands the replicator a task with at least one candidate node. (With overlapping
-\* rules the code as found keeps calling the replicator with an EMPTY candidate list: a holder remembered from
-\* an earlier rule does not lower the shortage of a later rule - a phantom shortage that copies nothing.)
-Replicates(d) == \E k \in 1..Len(d.tasks) : Len(d.tasks[k].nodes) > 0
-Quiet(hs) == \A n \in hs : LET d == Decide27(n, hs, {}, {}) IN ~Replicates(d) /\ d.del = "none"
-NoTasks(hs) == \A n \in hs : ~Replicates(Decide27(n, hs, {}, {}))
- \* a check "replicates" when it hands the replicator a task with at least one candidate node. (With overlapping
-\* rules the code as found keeps calling the replicator with an EMPTY candidate list: a holder remembered from
-\* an earlier rule does not lower the shortage of a later rule - a phantom shortage that copies nothing.)
-Replicates(d) == \E k \in 1..Len(d.tasks) : Len(d.tasks[k].nodes) > 0
-Quiet(hs) == \A n \in hs : LET d == Decide27(n, hs, {}, {}) IN ~Replicates(d) /\ d.del = "none"
-NoTasks(hs) == \A n \in hs : ~Replicates(Decide27(n, hs, {}, {}))
- \* a check "replicates" when it hands the replicator a task with at least one candidate node. (With overlapping
-\* rules the code as found keeps calling the replicator with an EMPTY candidate list: a holder remembered from
-\* an earlier rule does not lower the shortage of a later rule - a phantom shortage that copies nothing.)
-Replicates(d) == \E k \in 1..Len(d.tasks) : Len(d.tasks[k].nodes) > 0
-Quiet(hs) == \A n \in hs : LET d == Decide27(n, hs, {}, {}) IN ~Replicates(d) /\ d.del = "none"
-NoTasks(hs) == \A n \in hs : ~Replicates(Decide27(n, hs, {}, {}))
- \* a check "replicates" when it hands the replicator a task with at least one candidate node. (With overlapping
-\* rules the code as found keeps calling the replicator with an EMPTY candidate list: a holder remembered from
-\* an earlier rule does not lower the shortage of a later rule - a phantom shortage that copies nothing.)
-Replicates(d) == \E k \in 1..Len(d.tasks) : Len(d.tasks[k].nodes) > 0
-Quiet(hs) == \A n \in hs : LET d == Decide27(n, hs, {}, {}) IN ~Replicates(d) /\ d.del = "none"
-NoTasks(hs) == \A n \in hs : ~Replicates(Decide27(n, hs, {}, {}))
-<\* a check "replicates" when it hands the replicator a task with at least one candidate node. (With overlapping
-\* rules the code as found keeps calling the replicator with an EMPTY candidate list: a holder remembered from
-\* an earlier rule does not lower the shortage of a later rule - a phantom shortage that copies nothing.)
-Replicates(d) == \E k \in 1..Len(d.tasks) : Len(d.tasks[k].nodes) > 0
-Quiet(hs) == \A n \in hs : LET d == Decide27(n, hs, {}, {}) IN ~Replicates(d) /\ d.del = "none"
-NoTasks(hs) == \A n \in hs : ~Replicates(Decide27(n, hs, {}, {}))
->\* a check "replicates" when it hands the replicator a task with at least one candidate node. (With overlapping
-\* rules the code as found keeps calling the replicator with an EMPTY candidate list: a holder remembered from
-\* an earlier rule does not lower the shortage of a later rule - a phantom shortage that copies nothing.)
-Replicates(d) == \E k \in 1..Len(d.tasks) : Len(d.tasks[k].nodes) > 0
-Quiet(hs) == \A n \in hs : LET d == Decide27(n, hs, {}, {}) IN ~Replicates(d) /\ d.del = "none"
-NoTasks(hs) == \A n \in hs : ~Replicates(Decide27(n, hs, {}, {}))
-[\* a check "replicates" when it hands the replicator a task with at least one candidate node. (With overlapping
-\* rules the code as found keeps calling the replicator with an EMPTY candidate list: a holder remembered from
-\* an earlier rule does not lower the shortage of a later rule - a phantom shortage that copies nothing.)
-Replicates(d) == \E k \in 1..Len(d.tasks) : Len(d.tasks[k].nodes) > 0
-Quiet(hs) == \A n \in hs : LET d == Decide27(n, hs, {}, {}) IN ~Replicates(d) /\ d.del = "none"
-NoTasks(hs) == \A n \in hs : ~Replicates(Decide27(n, hs, {}, {}))
-]\* a check "replicates" when it hands the replicator a task with at least one candidate node. (With overlapping
-\* rules the code as found keeps calling the replicator with an EMPTY candidate list: a holder remembered from
-\* an earlier rule does not lower the shortage of a later rule - a phantom shortage that copies nothing.)
-Replicates(d) == \E k \in 1..Len(d.tasks) : Len(d.tasks[k].nodes) > 0
-Quiet(hs) == \A n \in hs : LET d == Decide27(n, hs, {}, {}) IN ~Replicates(d) /\ d.del = "none"
-NoTasks(hs) == \A n \in hs : ~Replicates(Decide27(n, hs, {}, {}))
- \* a check "replicates" when it hands the replicator a task with at least one candidate node. (With overlapping
-\* rules the code as found keeps calling the replicator with an EMPTY candidate list: a holder remembered from
-\* an earlier rule does not lower the shortage of a later rule - a phantom shortage that copies nothing.)
-Replicates(d) == \E k \in 1..Len(d.tasks) : Len(d.tasks[k].nodes) > 0
-Quiet(hs) == \A n \in hs : LET d == Decide27(n, hs, {}, {}) IN ~Replicates(d) /\ d.del = "none"
-NoTasks(hs) == \A n \in hs : ~Replicates(Decide27(n, hs, {}, {}))
-C\* a check "replicates" when it hands the replicator a task with at least one candidate node. (With overlapping
-\* rules the code as found keeps calling the replicator with an EMPTY candidate list: a holder remembered from
-\* an earlier rule does not lower the shortage of a later rule - a phantom shortage that copies nothing.)
-Replicates(d) == \E k \in 1..Len(d.tasks) : Len(d.tasks[k].nodes) > 0
-Quiet(hs) == \A n \in hs : LET d == Decide27(n, hs, {}, {}) IN ~Replicates(d) /\ d.del = "none"
-NoTasks(hs) == \A n \in hs : ~Replicates(Decide27(n, hs, {}, {}))
-o\* a check "replicates" when it hands the replicator a task with at least one candidate node. (With overlapping
-\* rules the code as found keeps calling the replicator with an EMPTY candidate list: a holder remembered from
-\* an earlier rule does not lower the shortage of a later rule - a phantom shortage that copies nothing.)
-Replicates(d) == \E k \in 1..Len(d.tasks) : Len(d.tasks[k].nodes) > 0
-Quiet(hs) == \A n \in hs : LET d == Decide27(n, hs, {}, {}) IN ~Replicates(d) /\ d.del = "none"
-NoTasks(hs) == \A n \in hs : ~Replicates(Decide27(n, hs, {}, {}))
-n\* a check "replicates" when it hands the replicator a task with at least one candidate node. (With overlapping
-\* rules the code as found keeps calling the replicator with an EMPTY candidate list: a holder remembered from
-\* an earlier rule does not lower the shortage of a later rule - a phantom shortage that copies nothing.)
-Replicates(d) == \E k \in 1..Len(d.tasks) : Len(d.tasks[k].nodes) > 0
-Quiet(hs) == \A n \in hs : LET d == Decide27(n, hs, {}, {}) IN ~Replicates(d) /\ d.del = "none"
-NoTasks(hs) == \A n \in hs : ~Replicates(Decide27(n, hs, {}, {}))
-v\* a check "replicates" when it hands the replicator a task with at least one candidate node. (With overlapping
-\* rules the code as found keeps calling the replicator with an EMPTY candidate list: a holder remembered from
-\* an earlier rule does not lower the shortage of a later rule - a phantom shortage that copies nothing.)
-Replicates(d) == \E k \in 1..Len(d.tasks) : Len(d.tasks[k].nodes) > 0
-Quiet(hs) == \A n \in hs : LET d == Decide27(n, hs, {}, {}) IN ~Replicates(d) /\ d.del = "none"
-NoTasks(hs) == \A n \in hs : ~Replicates(Decide27(n, hs, {}, {}))
-e\* a check "replicates" when it hands the replicator a task with at least one candidate node. (With overlapping
-\* rules the code as found keeps calling the replicator with an EMPTY candidate list: a holder remembered from
-\* an earlier rule does not lower the shortage of a later rule - a phantom shortage that copies nothing.)
-Replicates(d) == \E k \in 1..Len(d.tasks) : Len(d.tasks[k].nodes) > 0
-Quiet(hs) == \A n \in hs : LET d == Decide27(n, hs, {}, {}) IN ~Replicates(d) /\ d.del = "none"
-NoTasks(hs) == \A n \in hs : ~Replicates(Decide27(n, hs, {}, {}))
-r\* a check "replicates" when it hands the replicator a task with at least one candidate node. (With overlapping
-\* rules the code as found keeps calling the replicator with an EMPTY candidate list: a holder remembered from
-\* an earlier rule does not lower the shortage of a later rule - a phantom shortage that copies nothing.)
-Replicates(d) == \E k \in 1..Len(d.tasks) : Len(d.tasks[k].nodes) > 0
-Quiet(hs) == \A n \in hs : LET d == Decide27(n, hs, {}, {}) IN ~Replicates(d) /\ d.del = "none"
-NoTasks(hs) == \A n \in hs : ~Replicates(Decide27(n, hs, {}, {}))
-g\* a check "replicates" when it hands the replicator a task with at least one candidate node. (With overlapping
-\* rules the code as found keeps calling the replicator with an EMPTY candidate list: a holder remembered from
-\* an earlier rule does not lower the shortage of a later rule - a phantom shortage that copies nothing.)
-Replicates(d) == \E k \in 1..Len(d.tasks) : Len(d.tasks[k].nodes) > 0
-Quiet(hs) == \A n \in hs : LET d == Decide27(n, hs, {}, {}) IN ~Replicates(d) /\ d.del = "none"
-NoTasks(hs) == \A n \in hs : ~Replicates(Decide27(n, hs, {}, {}))
-e\* a check "replicates" when it hands the replicator a task with at least one candidate node. (With overlapping
-\* rules the code as found keeps calling the replicator with an EMPTY candidate list: a holder remembered from
-\* an earlier rule does not lower the shortage of a later rule - a phantom shortage that copies nothing.)
-Replicates(d) == \E k \in 1..Len(d.tasks) : Len(d.tasks[k].nodes) > 0
-Quiet(hs) == \A n \in hs : LET d == Decide27(n, hs, {}, {}) IN ~Replicates(d) /\ d.del = "none"
-NoTasks(hs) == \A n \in hs : ~Replicates(Decide27(n, hs, {}, {}))
-d\* a check "replicates" when it hands the replicator a task with at least one candidate node. (With overlapping
-\* rules the code as found keeps calling the replicator with an EMPTY candidate list: a holder remembered from
-\* an earlier rule does not lower the shortage of a later rule - a phantom shortage that copies nothing.)
-Replicates(d) == \E k \in 1..Len(d.tasks) : Len(d.tasks[k].nodes) > 0
-Quiet(hs) == \A n \in hs : LET d == Decide27(n, hs, {}, {}) IN ~Replicates(d) /\ d.del = "none"
-NoTasks(hs) == \A n \in hs : ~Replicates(Decide27(n, hs, {}, {}))
-,\* a check "replicates" when it hands the replicator a task with at least one candidate node. (With overlapping
-\* rules the code as found keeps calling the replicator with an EMPTY candidate list: a holder remembered from
-\* an earlier rule does not lower the shortage of a later rule - a phantom shortage that copies nothing.)
-Replicates(d) == \E k \in 1..Len(d.tasks) : Len(d.tasks[k].nodes) > 0
-Quiet(hs) == \A n \in hs : LET d == Decide27(n, hs, {}, {}) IN ~Replicates(d) /\ d.del = "none"
-NoTasks(hs) == \A n \in hs : ~Replicates(Decide27(n, hs, {}, {}))
- \* a check "replicates" when it hands the replicator a task with at least one candidate node. (With overlapping
-\* rules the code as found keeps calling the replicator with an EMPTY candidate list: a holder remembered from
-\* an earlier rule does not lower the shortage of a later rule - a phantom shortage that copies nothing.)
-Replicates(d) == \E k \in 1..Len(d.tasks) : Len(d.tasks[k].nodes) > 0
-Quiet(hs) == \A n \in hs : LET d == Decide27(n, hs, {}, {}) IN ~Replicates(d) /\ d.del = "none"
-NoTasks(hs) == \A n \in hs : ~Replicates(Decide27(n, hs, {}, {}))
- \* a check "replicates" when it hands the replicator a task with at least one candidate node. (With overlapping
-\* rules the code as found keeps calling the replicator with an EMPTY candidate list: a holder remembered from
-\* an earlier rule does not lower the shortage of a later rule - a phantom shortage that copies nothing.)
-Replicates(d) == \E k \in 1..Len(d.tasks) : Len(d.tasks[k].nodes) > 0
-Quiet(hs) == \A n \in hs : LET d == Decide27(n, hs, {}, {}) IN ~Replicates(d) /\ d.del = "none"
-NoTasks(hs) == \A n \in hs : ~Replicates(Decide27(n, hs, {}, {}))
- \* a check "replicates" when it hands the replicator a task with at least one candidate node. (With overlapping
-\* rules the code as found keeps calling the replicator with an EMPTY candidate list: a holder remembered from
-\* an earlier rule does not lower the shortage of a later rule - a phantom shortage that copies nothing.)
-Replicates(d) == \E k \in 1..Len(d.tasks) : Len(d.tasks[k].nodes) > 0
-Quiet(hs) == \A n \in hs : LET d == Decide27(n, hs, {}, {}) IN ~Replicates(d) /\ d.del = "none"
-NoTasks(hs) == \A n \in hs : ~Replicates(Decide27(n, hs, {}, {}))
-C\* a check "replicates" when it hands the replicator a task with at least one candidate node. (With overlapping
-\* rules the code as found keeps calling the replicator with an EMPTY candidate list: a holder remembered from
-\* an earlier rule does not lower the shortage of a later rule - a phantom shortage that copies nothing.)
-Replicates(d) == \E k \in 1..Len(d.tasks) : Len(d.tasks[k].nodes) > 0
-Quiet(hs) == \A n \in hs : LET d == Decide27(n, hs, {}, {}) IN ~Replicates(d) /\ d.del = "none"
-NoTasks(hs) == \A n \in hs : ~Replicates(Decide27(n, hs, {}, {}))
-o\* a check "replicates" when it hands the replicator a task with at least one candidate node. (With overlapping
-\* rules the code as found keeps calling the replicator with an EMPTY candidate list: a holder remembered from
-\* an earlier rule does not lower the shortage of a later rule - a phantom shortage that copies nothing.)
-Replicates(d) == \E k \in 1..Len(d.tasks) : Len(d.tasks[k].nodes) > 0
-Quiet(hs) == \A n \in hs : LET d == Decide27(n, hs, {}, {}) IN ~Replicates(d) /\ d.del = "none"
-NoTasks(hs) == \A n \in hs : ~Replicates(Decide27(n, hs, {}, {}))
-n\* a check "replicates" when it hands the replicator a task with at least one candidate node. (With overlapping
-\* rules the code as found keeps calling the replicator with an EMPTY candidate list: a holder remembered from
-\* an earlier rule does not lower the shortage of a later rule - a phantom shortage that copies nothing.)
-Replicates(d) == \E k \in 1..Len(d.tasks) : Len(d.tasks[k].nodes) > 0
-Quiet(hs) == \A n \in hs : LET d == Decide27(n, hs, {}, {}) IN ~Replicates(d) /\ d.del = "none"
-NoTasks(hs) == \A n \in hs : ~Replicates(Decide27(n, hs, {}, {}))
-v\* a check "replicates" when it hands the replicator a task with at least one candidate node. (With overlapping
-\* rules the code as found keeps calling the replicator with an EMPTY candidate list: a holder remembered from
-\* an earlier rule does not lower the shortage of a later rule - a phantom shortage that copies nothing.)
-Replicates(d) == \E k \in 1..Len(d.tasks) : Len(d.tasks[k].nodes) > 0
-Quiet(hs) == \A n \in hs : LET d == Decide27(n, hs, {}, {}) IN ~Replicates(d) /\ d.del = "none"
-NoTasks(hs) == \A n \in hs : ~Replicates(Decide27(n, hs, {}, {}))
-e\* a check "replicates" when it hands the replicator a task with at least one candidate node. (With overlapping
-\* rules the code as found keeps calling the replicator with an EMPTY candidate list: a holder remembered from
-\* an earlier rule does not lower the shortage of a later rule - a phantom shortage that copies nothing.)
-Replicates(d) == \E k \in 1..Len(d.tasks) : Len(d.tasks[k].nodes) > 0
-Quiet(hs) == \A n \in hs : LET d == Decide27(n, hs, {}, {}) IN ~Replicates(d) /\ d.del = "none"
-NoTasks(hs) == \A n \in hs : ~Replicates(Decide27(n, hs, {}, {}))
-r\* a check "replicates" when it hands the replicator a task with at least one candidate node. (With overlapping
-\* rules the code as found keeps calling the replicator with an EMPTY candidate list: a holder remembered from
-\* an earlier rule does not lower the shortage of a later rule - a phantom shortage that copies nothing.)
-Replicates(d) == \E k \in 1..Len(d.tasks) : Len(d.tasks[k].nodes) > 0
-Quiet(hs) == \A n \in hs : LET d == Decide27(n, hs, {}, {}) IN ~Replicates(d) /\ d.del = "none"
-NoTasks(hs) == \A n \in hs : ~Replicates(Decide27(n, hs, {}, {}))
-g\* a check "replicates" when it hands the replicator a task with at least one candidate node. (With overlapping
-\* rules the code as found keeps calling the replicator with an EMPTY candidate list: a holder remembered from
-\* an earlier rule does not lower the shortage of a later rule - a phantom shortage that copies nothing.)
-Replicates(d) == \E k \in 1..Len(d.tasks) : Len(d.tasks[k].nodes) > 0
-Quiet(hs) == \A n \in hs : LET d == Decide27(n, hs, {}, {}) IN ~Replicates(d) /\ d.del = "none"
-NoTasks(hs) == \A n \in hs : ~Replicates(Decide27(n, hs, {}, {}))
-e\* a check "replicates" when it hands the replicator a task with at least one candidate node. (With overlapping
-\* rules the code as found keeps calling the replicator with an EMPTY candidate list: a holder remembered from
-\* an earlier rule does not lower the shortage of a later rule - a phantom shortage that copies nothing.)
-Replicates(d) == \E k \in 1..Len(d.tasks) : Len(d.tasks[k].nodes) > 0
-Quiet(hs) == \A n \in hs : LET d == Decide27(n, hs, {}, {}) IN ~Replicates(d) /\ d.del = "none"
-NoTasks(hs) == \A n \in hs : ~Replicates(Decide27(n, hs, {}, {}))
-d\* a check "replicates" when it hands the replicator a task with at least one candidate node. (With overlapping
-\* rules the code as found keeps calling the replicator with an EMPTY candidate list: a holder remembered from
-\* an earlier rule does not lower the shortage of a later rule - a phantom shortage that copies nothing.)
-Replicates(d) == \E k \in 1..Len(d.tasks) : Len(d.tasks[k].nodes) > 0
-Quiet(hs) == \A n \in hs : LET d == Decide27(n, hs, {}, {}) IN ~Replicates(d) /\ d.del = "none"
-NoTasks(hs) == \A n \in hs : ~Replicates(Decide27(n, hs, {}, {}))
- \* a check "replicates" when it hands the replicator a task with at least one candidate node. (With overlapping
-\* rules the code as found keeps calling the replicator with an EMPTY candidate list: a holder remembered from
-\* an earlier rule does not lower the shortage of a later rule - a phantom shortage that copies nothing.)
-Replicates(d) == \E k \in 1..Len(d.tasks) : Len(d.tasks[k].nodes) > 0
-Quiet(hs) == \A n \in hs : LET d == Decide27(n, hs, {}, {}) IN ~Replicates(d) /\ d.del = "none"
-NoTasks(hs) == \A n \in hs : ~Replicates(Decide27(n, hs, {}, {}))
-=\* a check "replicates" when it hands the replicator a task with at least one candidate node. (With overlapping
-\* rules the code as found keeps calling the replicator with an EMPTY candidate list: a holder remembered from
-\* an earlier rule does not lower the shortage of a later rule - a phantom shortage that copies nothing.)
-Replicates(d) == \E k \in 1..Len(d.tasks) : Len(d.tasks[k].nodes) > 0
-Quiet(hs) == \A n \in hs : LET d == Decide27(n, hs, {}, {}) IN ~Replicates(d) /\ d.del = "none"
-NoTasks(hs) == \A n \in hs : ~Replicates(Decide27(n, hs, {}, {}))
-=\* a check "replicates" when it hands the replicator a task with at least one candidate node. (With overlapping
-\* rules the code as found keeps calling the replicator with an EMPTY candidate list: a holder remembered from
-\* an earlier rule does not lower the shortage of a later rule - a phantom shortage that copies nothing.)
-Replicates(d) == \E k \in 1..Len(d.tasks) : Len(d.tasks[k].nodes) > 0
-Quiet(hs) == \A n \in hs : LET d == Decide27(n, hs, {}, {}) IN ~Replicates(d) /\ d.del = "none"
-NoTasks(hs) == \A n \in hs : ~Replicates(Decide27(n, hs, {}, {}))
- \* a check "replicates" when it hands the replicator a task with at least one candidate node. (With overlapping
-\* rules the code as found keeps calling the replicator with an EMPTY candidate list: a holder remembered from
-\* an earlier rule does not lower the shortage of a later rule - a phantom shortage that copies nothing.)
-Replicates(d) == \E k \in 1..Len(d.tasks) : Len(d.tasks[k].nodes) > 0
-Quiet(hs) == \A n \in hs : LET d == Decide27(n, hs, {}, {}) IN ~Replicates(d) /\ d.del = "none"
-NoTasks(hs) == \A n \in hs : ~Replicates(Decide27(n, hs, {}, {}))
-p\* a check "replicates" when it hands the replicator a task with at least one candidate node. (With overlapping
-\* rules the code as found keeps calling the replicator with an EMPTY candidate list: a holder remembered from
-\* an earlier rule does not lower the shortage of a later rule - a phantom shortage that copies nothing.)
-Replicates(d) == \E k \in 1..Len(d.tasks) : Len(d.tasks[k].nodes) > 0
-Quiet(hs) == \A n \in hs : LET d == Decide27(n, hs, {}, {}) IN ~Replicates(d) /\ d.del = "none"
-NoTasks(hs) == \A n \in hs : ~Replicates(Decide27(n, hs, {}, {}))
-r\* a check "replicates" when it hands the replicator a task with at least one candidate node. (With overlapping
-\* rules the code as found keeps calling the replicator with an EMPTY candidate list: a holder remembered from
-\* an earlier rule does not lower the shortage of a later rule - a phantom shortage that copies nothing.)
-Replicates(d) == \E k \in 1..Len(d.tasks) : Len(d.tasks[k].nodes) > 0
-Quiet(hs) == \A n \in hs : LET d == Decide27(n, hs, {}, {}) IN ~Replicates(d) /\ d.del = "none"
-NoTasks(hs) == \A n \in hs : ~Replicates(Decide27(n, hs, {}, {}))
-i\* a check "replicates" when it hands the replicator a task with at least one candidate node. (With overlapping
-\* rules the code as found keeps calling the replicator with an EMPTY candidate list: a holder remembered from
-\* an earlier rule does not lower the shortage of a later rule - a phantom shortage that copies nothing.)
-Replicates(d) == \E k \in 1..Len(d.tasks) : Len(d.tasks[k].nodes) > 0
-Quiet(hs) == \A n \in hs : LET d == Decide27(n, hs, {}, {}) IN ~Replicates(d) /\ d.del = "none"
-NoTasks(hs) == \A n \in hs : ~Replicates(Decide27(n, hs, {}, {}))
-m\* a check "replicates" when it hands the replicator a task with at least one candidate node. (With overlapping
-\* rules the code as found keeps calling the replicator with an EMPTY candidate list: a holder remembered from
-\* an earlier rule does not lower the shortage of a later rule - a phantom shortage that copies nothing.)
-Replicates(d) == \E k \in 1..Len(d.tasks) : Len(d.tasks[k].nodes) > 0
-Quiet(hs) == \A n \in hs : LET d == Decide27(n, hs, {}, {}) IN ~Replicates(d) /\ d.del = "none"
-NoTasks(hs) == \A n \in hs : ~Replicates(Decide27(n, hs, {}, {}))
-a\* a check "replicates" when it hands the replicator a task with at least one candidate node. (With overlapping
-\* rules the code as found keeps calling the replicator with an EMPTY candidate list: a holder remembered from
-\* an earlier rule does not lower the shortage of a later rule - a phantom shortage that copies nothing.)
-Replicates(d) == \E k \in 1..Len(d.tasks) : Len(d.tasks[k].nodes) > 0
-Quiet(hs) == \A n \in hs : LET d == Decide27(n, hs, {}, {}) IN ~Replicates(d) /\ d.del = "none"
-NoTasks(hs) == \A n \in hs : ~Replicates(Decide27(n, hs, {}, {}))
-r\* a check "replicates" when it hands the replicator a task with at least one candidate node. (With overlapping
-\* rules the code as found keeps calling the replicator with an EMPTY candidate list: a holder remembered from
-\* an earlier rule does not lower the shortage of a later rule - a phantom shortage that copies nothing.)
-Replicates(d) == \E k \in 1..Len(d.tasks) : Len(d.tasks[k].nodes) > 0
-Quiet(hs) == \A n \in hs : LET d == Decide27(n, hs, {}, {}) IN ~Replicates(d) /\ d.del = "none"
-NoTasks(hs) == \A n \in hs : ~Replicates(Decide27(n, hs, {}, {}))
-i\* a check "replicates" when it hands the replicator a task with at least one candidate node. (With overlapping
-\* rules the code as found keeps calling the replicator with an EMPTY candidate list: a holder remembered from
-\* an earlier rule does not lower the shortage of a later rule - a phantom shortage that copies nothing.)
-Replicates(d) == \E k \in 1..Len(d.tasks) : Len(d.tasks[k].nodes) > 0
-Quiet(hs) == \A n \in hs : LET d == Decide27(n, hs, {}, {}) IN ~Replicates(d) /\ d.del = "none"
-NoTasks(hs) == \A n \in hs : ~Replicates(Decide27(n, hs, {}, {}))
-e\* a check "replicates" when it hands the replicator a task with at least one candidate node. (With overlapping
-\* rules the code as found keeps calling the replicator with an EMPTY candidate list: a holder remembered from
-\* an earlier rule does not lower the shortage of a later rule - a phantom shortage that copies nothing.)
-Replicates(d) == \E k \in 1..Len(d.tasks) : Len(d.tasks[k].nodes) > 0
-Quiet(hs) == \A n \in hs : LET d == Decide27(n, hs, {}, {}) IN ~Replicates(d) /\ d.del = "none"
-NoTasks(hs) == \A n \in hs : ~Replicates(Decide27(n, hs, {}, {}))
-s\* a check "replicates" when it hands the replicator a task with at least one candidate node. (With overlapping
-\* rules the code as found keeps calling the replicator with an EMPTY candidate list: a holder remembered from
-\* an earlier rule does not lower the shortage of a later rule - a phantom shortage that copies nothing.)
-Replicates(d) == \E k \in 1..Len(d.tasks) : Len(d.tasks[k].nodes) > 0
-Quiet(hs) == \A n \in hs : LET d == Decide27(n, hs, {}, {}) IN ~Replicates(d) /\ d.del = "none"
-NoTasks(hs) == \A n \in hs : ~Replicates(Decide27(n, hs, {}, {}))
- \* a check "replicates" when it hands the replicator a task with at least one candidate node. (With overlapping
-\* rules the code as found keeps calling the replicator with an EMPTY candidate list: a holder remembered from
-\* an earlier rule does not lower the shortage of a later rule - a phantom shortage that copies nothing.)
-Replicates(d) == \E k \in 1..Len(d.tasks) : Len(d.tasks[k].nodes) > 0
-Quiet(hs) == \A n \in hs : LET d == Decide27(n, hs, {}, {}) IN ~Replicates(d) /\ d.del = "none"
-NoTasks(hs) == \A n \in hs : ~Replicates(Decide27(n, hs, {}, {}))
-h\* a check "replicates" when it hands the replicator a task with at least one candidate node. (With overlapping
-\* rules the code as found keeps calling the replicator with an EMPTY candidate list: a holder remembered from
-\* an earlier rule does not lower the shortage of a later rule - a phantom shortage that copies nothing.)
-Replicates(d) == \E k \in 1..Len(d.tasks) : Len(d.tasks[k].nodes) > 0
-Quiet(hs) == \A n \in hs : LET d == Decide27(n, hs, {}, {}) IN ~Replicates(d) /\ d.del = "none"
-NoTasks(hs) == \A n \in hs : ~Replicates(Decide27(n, hs, {}, {}))
-o\* a check "replicates" when it hands the replicator a task with at least one candidate node. (With overlapping
-\* rules the code as found keeps calling the replicator with an EMPTY candidate list: a holder remembered from
-\* an earlier rule does not lower the shortage of a later rule - a phantom shortage that copies nothing.)
-Replicates(d) == \E k \in 1..Len(d.tasks) : Len(d.tasks[k].nodes) > 0
-Quiet(hs) == \A n \in hs : LET d == Decide27(n, hs, {}, {}) IN ~Replicates(d) /\ d.del = "none"
-NoTasks(hs) == \A n \in hs : ~Replicates(Decide27(n, hs, {}, {}))
-l\* a check "replicates" when it hands the replicator a task with at least one candidate node. (With overlapping
-\* rules the code as found keeps calling the replicator with an EMPTY candidate list: a holder remembered from
-\* an earlier rule does not lower the shortage of a later rule - a phantom shortage that copies nothing.)
-Replicates(d) == \E k \in 1..Len(d.tasks) : Len(d.tasks[k].nodes) > 0
-Quiet(hs) == \A n \in hs : LET d == Decide27(n, hs, {}, {}) IN ~Replicates(d) /\ d.del = "none"
-NoTasks(hs) == \A n \in hs : ~Replicates(Decide27(n, hs, {}, {}))
-d\* a check "replicates" when it hands the replicator a task with at least one candidate node. (With overlapping
-\* rules the code as found keeps calling the replicator with an EMPTY candidate list: a holder remembered from
-\* an earlier rule does not lower the shortage of a later rule - a phantom shortage that copies nothing.)
-Replicates(d) == \E k \in 1..Len(d.tasks) : Len(d.tasks[k].nodes) > 0
-Quiet(hs) == \A n \in hs : LET d == Decide27(n, hs, {}, {}) IN ~Replicates(d) /\ d.del = "none"
-NoTasks(hs) == \A n \in hs : ~Replicates(Decide27(n, hs, {}, {}))
- \* a check "replicates" when it hands the replicator a task with at least one candidate node. (With overlapping
-\* rules the code as found keeps calling the replicator with an EMPTY candidate list: a holder remembered from
-\* an earlier rule does not lower the shortage of a later rule - a phantom shortage that copies nothing.)
-Replicates(d) == \E k \in 1..Len(d.tasks) : Len(d.tasks[k].nodes) > 0
-Quiet(hs) == \A n \in hs : LET d == Decide27(n, hs, {}, {}) IN ~Replicates(d) /\ d.del = "none"
-NoTasks(hs) == \A n \in hs : ~Replicates(Decide27(n, hs, {}, {}))
-t\* a check "replicates" when it hands the replicator a task with at least one candidate node. (With overlapping
-\* rules the code as found keeps calling the replicator with an EMPTY candidate list: a holder remembered from
-\* an earlier rule does not lower the shortage of a later rule - a phantom shortage that copies nothing.)
-Replicates(d) == \E k \in 1..Len(d.tasks) : Len(d.tasks[k].nodes) > 0
-Quiet(hs) == \A n \in hs : LET d == Decide27(n, hs, {}, {}) IN ~Replicates(d) /\ d.del = "none"
-NoTasks(hs) == \A n \in hs : ~Replicates(Decide27(n, hs, {}, {}))
-h\* a check "replicates" when it hands the replicator a task with at least one candidate node. (With overlapping
-\* rules the code as found keeps calling the replicator with an EMPTY candidate list: a holder remembered from
-\* an earlier rule does not lower the shortage of a later rule - a phantom shortage that copies nothing.)
-Replicates(d) == \E k \in 1..Len(d.tasks) : Len(d.tasks[k].nodes) > 0
-Quiet(hs) == \A n \in hs : LET d == Decide27(n, hs, {}, {}) IN ~Replicates(d) /\ d.del = "none"
-NoTasks(hs) == \A n \in hs : ~Replicates(Decide27(n, hs, {}, {}))
-e\* a check "replicates" when it hands the replicator a task with at least one candidate node. (With overlapping
-\* rules the code as found keeps calling the replicator with an EMPTY candidate list: a holder remembered from
-\* an earlier rule does not lower the shortage of a later rule - a phantom shortage that copies nothing.)
-Replicates(d) == \E k \in 1..Len(d.tasks) : Len(d.tasks[k].nodes) > 0
-Quiet(hs) == \A n \in hs : LET d == Decide27(n, hs, {}, {}) IN ~Replicates(d) /\ d.del = "none"
-NoTasks(hs) == \A n \in hs : ~Replicates(Decide27(n, hs, {}, {}))
- \* a check "replicates" when it hands the replicator a task with at least one candidate node. (With overlapping
-\* rules the code as found keeps calling the replicator with an EMPTY candidate list: a holder remembered from
-\* an earlier rule does not lower the shortage of a later rule - a phantom shortage that copies nothing.)
-Replicates(d) == \E k \in 1..Len(d.tasks) : Len(d.tasks[k].nodes) > 0
-Quiet(hs) == \A n \in hs : LET d == Decide27(n, hs, {}, {}) IN ~Replicates(d) /\ d.del = "none"
-NoTasks(hs) == \A n \in hs : ~Replicates(Decide27(n, hs, {}, {}))
-o\* a check "replicates" when it hands the replicator a task with at least one candidate node. (With overlapping
-\* rules the code as found keeps calling the replicator with an EMPTY candidate list: a holder remembered from
-\* an earlier rule does not lower the shortage of a later rule - a phantom shortage that copies nothing.)
-Replicates(d) == \E k \in 1..Len(d.tasks) : Len(d.tasks[k].nodes) > 0
-Quiet(hs) == \A n \in hs : LET d == Decide27(n, hs, {}, {}) IN ~Replicates(d) /\ d.del = "none"
-NoTasks(hs) == \A n \in hs : ~Replicates(Decide27(n, hs, {}, {}))
-b\* a check "replicates" when it hands the replicator a task with at least one candidate node. (With overlapping
-\* rules the code as found keeps calling the replicator with an EMPTY candidate list: a holder remembered from
-\* an earlier rule does not lower the shortage of a later rule - a phantom shortage that copies nothing.)
-Replicates(d) == \E k \in 1..Len(d.tasks) : Len(d.tasks[k].nodes) > 0
-Quiet(hs) == \A n \in hs : LET d == Decide27(n, hs, {}, {}) IN ~Replicates(d) /\ d.del = "none"
-NoTasks(hs) == \A n \in hs : ~Replicates(Decide27(n, hs, {}, {}))
-j\* a check "replicates" when it hands the replicator a task with at least one candidate node. (With overlapping
-\* rules the code as found keeps calling the replicator with an EMPTY candidate list: a holder remembered from
-\* an earlier rule does not lower the shortage of a later rule - a phantom shortage that copies nothing.)
-Replicates(d) == \E k \in 1..Len(d.tasks) : Len(d.tasks[k].nodes) > 0
-Quiet(hs) == \A n \in hs : LET d == Decide27(n, hs, {}, {}) IN ~Replicates(d) /\ d.del = "none"
-NoTasks(hs) == \A n \in hs : ~Replicates(Decide27(n, hs, {}, {}))
-e\* a check "replicates" when it hands the replicator a task with at least one candidate node. (With overlapping
-\* rules the code as found keeps calling the replicator with an EMPTY candidate list: a holder remembered from
-\* an earlier rule does not lower the shortage of a later rule - a phantom shortage that copies nothing.)
-Replicates(d) == \E k \in 1..Len(d.tasks) : Len(d.tasks[k].nodes) > 0
-Quiet(hs) == \A n \in hs : LET d == Decide27(n, hs, {}, {}) IN ~Replicates(d) /\ d.del = "none"
-NoTasks(hs) == \A n \in hs : ~Replicates(Decide27(n, hs, {}, {}))
-c\* a check "replicates" when it hands the replicator a task with at least one candidate node. (With overlapping
-\* rules the code as found keeps calling the replicator with an EMPTY candidate list: a holder remembered from
-\* an earlier rule does not lower the shortage of a later rule - a phantom shortage that copies nothing.)
-Replicates(d) == \E k \in 1..Len(d.tasks) : Len(d.tasks[k].nodes) > 0
-Quiet(hs) == \A n \in hs : LET d == Decide27(n, hs, {}, {}) IN ~Replicates(d) /\ d.del = "none"
-NoTasks(hs) == \A n \in hs : ~Replicates(Decide27(n, hs, {}, {}))
-t\* a check "replicates" when it hands the replicator a task with at least one candidate node. (With overlapping
-\* rules the code as found keeps calling the replicator with an EMPTY candidate list: a holder remembered from
-\* an earlier rule does not lower the shortage of a later rule - a phantom shortage that copies nothing.)
-Replicates(d) == \E k \in 1..Len(d.tasks) : Len(d.tasks[k].nodes) > 0
-Quiet(hs) == \A n \in hs : LET d == Decide27(n, hs, {}, {}) IN ~Replicates(d) /\ d.del = "none"
-NoTasks(hs) == \A n \in hs : ~Replicates(Decide27(n, hs, {}, {}))
- \* a check "replicates" when it hands the replicator a task with at least one candidate node. (With overlapping
-\* rules the code as found keeps calling the replicator with an EMPTY candidate list: a holder remembered from
-\* an earlier rule does not lower the shortage of a later rule - a phantom shortage that copies nothing.)
-Replicates(d) == \E k \in 1..Len(d.tasks) : Len(d.tasks[k].nodes) > 0
-Quiet(hs) == \A n \in hs : LET d == Decide27(n, hs, {}, {}) IN ~Replicates(d) /\ d.del = "none"
-NoTasks(hs) == \A n \in hs : ~Replicates(Decide27(n, hs, {}, {}))
-/\* a check "replicates" when it hands the replicator a task with at least one candidate node. (With overlapping
-\* rules the code as found keeps calling the replicator with an EMPTY candidate list: a holder remembered from
-\* an earlier rule does not lower the shortage of a later rule - a phantom shortage that copies nothing.)
-Replicates(d) == \E k \in 1..Len(d.tasks) : Len(d.tasks[k].nodes) > 0
-Quiet(hs) == \A n \in hs : LET d == Decide27(n, hs, {}, {}) IN ~Replicates(d) /\ d.del = "none"
-NoTasks(hs) == \A n \in hs : ~Replicates(Decide27(n, hs, {}, {}))
-\\* a check "replicates" when it hands the replicator a task with at least one candidate node. (With overlapping
-\* rules the code as found keeps calling the replicator with an EMPTY candidate list: a holder remembered from
-\* an earlier rule does not lower the shortage of a later rule - a phantom shortage that copies nothing.)
-Replicates(d) == \E k \in 1..Len(d.tasks) : Len(d.tasks[k].nodes) > 0
-Quiet(hs) == \A n \in hs : LET d == Decide27(n, hs, {}, {}) IN ~Replicates(d) /\ d.del = "none"
-NoTasks(hs) == \A n \in hs : ~Replicates(Decide27(n, hs, {}, {}))
- \* a check "replicates" when it hands the replicator a task with at least one candidate node. (With overlapping
-\* rules the code as found keeps calling the replicator with an EMPTY candidate list: a holder remembered from
-\* an earlier rule does not lower the shortage of a later rule - a phantom shortage that copies nothing.)
-Replicates(d) == \E k \in 1..Len(d.tasks) : Len(d.tasks[k].nodes) > 0
-Quiet(hs) == \A n \in hs : LET d == Decide27(n, hs, {}, {}) IN ~Replicates(d) /\ d.del = "none"
-NoTasks(hs) == \A n \in hs : ~Replicates(Decide27(n, hs, {}, {}))
-n\* a check "replicates" when it hands the replicator a task with at least one candidate node. (With overlapping
-\* rules the code as found keeps calling the replicator with an EMPTY candidate list: a holder remembered from
-\* an earlier rule does not lower the shortage of a later rule - a phantom shortage that copies nothing.)
-Replicates(d) == \E k \in 1..Len(d.tasks) : Len(d.tasks[k].nodes) > 0
-Quiet(hs) == \A n \in hs : LET d == Decide27(n, hs, {}, {}) IN ~Replicates(d) /\ d.del = "none"
-NoTasks(hs) == \A n \in hs : ~Replicates(Decide27(n, hs, {}, {}))
-o\* a check "replicates" when it hands the replicator a task with at least one candidate node. (With overlapping
-\* rules the code as found keeps calling the replicator with an EMPTY candidate list: a holder remembered from
-\* an earlier rule does not lower the shortage of a later rule - a phantom shortage that copies nothing.)
-Replicates(d) == \E k \in 1..Len(d.tasks) : Len(d.tasks[k].nodes) > 0
-Quiet(hs) == \A n \in hs : LET d == Decide27(n, hs, {}, {}) IN ~Replicates(d) /\ d.del = "none"
-NoTasks(hs) == \A n \in hs : ~Replicates(Decide27(n, hs, {}, {}))
- \* a check "replicates" when it hands the replicator a task with at least one candidate node. (With overlapping
-\* rules the code as found keeps calling the replicator with an EMPTY candidate list: a holder remembered from
-\* an earlier rule does not lower the shortage of a later rule - a phantom shortage that copies nothing.)
-Replicates(d) == \E k \in 1..Len(d.tasks) : Len(d.tasks[k].nodes) > 0
-Quiet(hs) == \A n \in hs : LET d == Decide27(n, hs, {}, {}) IN ~Replicates(d) /\ d.del = "none"
-NoTasks(hs) == \A n \in hs : ~Replicates(Decide27(n, hs, {}, {}))
-h\* a check "replicates" when it hands the replicator a task with at least one candidate node. (With overlapping
-\* rules the code as found keeps calling the replicator with an EMPTY candidate list: a holder remembered from
-\* an earlier rule does not lower the shortage of a later rule - a phantom shortage that copies nothing.)
-Replicates(d) == \E k \in 1..Len(d.tasks) : Len(d.tasks[k].nodes) > 0
-Quiet(hs) == \A n \in hs : LET d == Decide27(n, hs, {}, {}) IN ~Replicates(d) /\ d.del = "none"
-NoTasks(hs) == \A n \in hs : ~Replicates(Decide27(n, hs, {}, {}))
-o\* a check "replicates" when it hands the replicator a task with at least one candidate node. (With overlapping
-\* rules the code as found keeps calling the replicator with an EMPTY candidate list: a holder remembered from
-\* an earlier rule does not lower the shortage of a later rule - a phantom shortage that copies nothing.)
-Replicates(d) == \E k \in 1..Len(d.tasks) : Len(d.tasks[k].nodes) > 0
-Quiet(hs) == \A n \in hs : LET d == Decide27(n, hs, {}, {}) IN ~Replicates(d) /\ d.del = "none"
-NoTasks(hs) == \A n \in hs : ~Replicates(Decide27(n, hs, {}, {}))
-l\* a check "replicates" when it hands the replicator a task with at least one candidate node. (With overlapping
-\* rules the code as found keeps calling the replicator with an EMPTY candidate list: a holder remembered from
-\* an earlier rule does not lower the shortage of a later rule - a phantom shortage that copies nothing.)
-Replicates(d) == \E k \in 1..Len(d.tasks) : Len(d.tasks[k].nodes) > 0
-Quiet(hs) == \A n \in hs : LET d == Decide27(n, hs, {}, {}) IN ~Replicates(d) /\ d.del = "none"
-NoTasks(hs) == \A n \in hs : ~Replicates(Decide27(n, hs, {}, {}))
-d\* a check "replicates" when it hands the replicator a task with at least one candidate node. (With overlapping
-\* rules the code as found keeps calling the replicator with an EMPTY candidate list: a holder remembered from
-\* an earlier rule does not lower the shortage of a later rule - a phantom shortage that copies nothing.)
-Replicates(d) == \E k \in 1..Len(d.tasks) : Len(d.tasks[k].nodes) > 0
-Quiet(hs) == \A n \in hs : LET d == Decide27(n, hs, {}, {}) IN ~Replicates(d) /\ d.del = "none"
-NoTasks(hs) == \A n \in hs : ~Replicates(Decide27(n, hs, {}, {}))
-e\* a check "replicates" when it hands the replicator a task with at least one candidate node. (With overlapping
-\* rules the code as found keeps calling the replicator with an EMPTY candidate list: a holder remembered from
-\* an earlier rule does not lower the shortage of a later rule - a phantom shortage that copies nothing.)
-Replicates(d) == \E k \in 1..Len(d.tasks) : Len(d.tasks[k].nodes) > 0
-Quiet(hs) == \A n \in hs : LET d == Decide27(n, hs, {}, {}) IN ~Replicates(d) /\ d.del = "none"
-NoTasks(hs) == \A n \in hs : ~Replicates(Decide27(n, hs, {}, {}))
-r\* a check "replicates" when it hands the replicator a task with at least one candidate node. (With overlapping
-\* rules the code as found keeps calling the replicator with an EMPTY candidate list: a holder remembered from
-\* an earlier rule does not lower the shortage of a later rule - a phantom shortage that copies nothing.)
-Replicates(d) == \E k \in 1..Len(d.tasks) : Len(d.tasks[k].nodes) > 0
-Quiet(hs) == \A n \in hs : LET d == Decide27(n, hs, {}, {}) IN ~Replicates(d) /\ d.del = "none"
-NoTasks(hs) == \A n \in hs : ~Replicates(Decide27(n, hs, {}, {}))
-'\* a check "replicates" when it hands the replicator a task with at least one candidate node. (With overlapping
-\* rules the code as found keeps calling the replicator with an EMPTY candidate list: a holder remembered from
-\* an earlier rule does not lower the shortage of a later rule - a phantom shortage that copies nothing.)
-Replicates(d) == \E k \in 1..Len(d.tasks) : Len(d.tasks[k].nodes) > 0
-Quiet(hs) == \A n \in hs : LET d == Decide27(n, hs, {}, {}) IN ~Replicates(d) /\ d.del = "none"
-NoTasks(hs) == \A n \in hs : ~Replicates(Decide27(n, hs, {}, {}))
-s\* a check "replicates" when it hands the replicator a task with at least one candidate node. (With overlapping
-\* rules the code as found keeps calling the replicator with an EMPTY candidate list: a holder remembered from
-\* an earlier rule does not lower the shortage of a later rule - a phantom shortage that copies nothing.)
-Replicates(d) == \E k \in 1..Len(d.tasks) : Len(d.tasks[k].nodes) > 0
-Quiet(hs) == \A n \in hs : LET d == Decide27(n, hs, {}, {}) IN ~Replicates(d) /\ d.del = "none"
-NoTasks(hs) == \A n \in hs : ~Replicates(Decide27(n, hs, {}, {}))
- \* a check "replicates" when it hands the replicator a task with at least one candidate node. (With overlapping
-\* rules the code as found keeps calling the replicator with an EMPTY candidate list: a holder remembered from
-\* an earlier rule does not lower the shortage of a later rule - a phantom shortage that copies nothing.)
-Replicates(d) == \E k \in 1..Len(d.tasks) : Len(d.tasks[k].nodes) > 0
-Quiet(hs) == \A n \in hs : LET d == Decide27(n, hs, {}, {}) IN ~Replicates(d) /\ d.del = "none"
-NoTasks(hs) == \A n \in hs : ~Replicates(Decide27(n, hs, {}, {}))
-c\* a check "replicates" when it hands the replicator a task with at least one candidate node. (With overlapping
-\* rules the code as found keeps calling the replicator with an EMPTY candidate list: a holder remembered from
-\* an earlier rule does not lower the shortage of a later rule - a phantom shortage that copies nothing.)
-Replicates(d) == \E k \in 1..Len(d.tasks) : Len(d.tasks[k].nodes) > 0
-Quiet(hs) == \A n \in hs : LET d == Decide27(n, hs, {}, {}) IN ~Replicates(d) /\ d.del = "none"
-NoTasks(hs) == \A n \in hs : ~Replicates(Decide27(n, hs, {}, {}))
-h\* a check "replicates" when it hands the replicator a task with at least one candidate node. (With overlapping
-\* rules the code as found keeps calling the replicator with an EMPTY candidate list: a holder remembered from
-\* an earlier rule does not lower the shortage of a later rule - a phantom shortage that copies nothing.)
-Replicates(d) == \E k \in 1..Len(d.tasks) : Len(d.tasks[k].nodes) > 0
-Quiet(hs) == \A n \in hs : LET d == Decide27(n, hs, {}, {}) IN ~Replicates(d) /\ d.del = "none"
-NoTasks(hs) == \A n \in hs : ~Replicates(Decide27(n, hs, {}, {}))
-e\* a check "replicates" when it hands the replicator a task with at least one candidate node. (With overlapping
-\* rules the code as found keeps calling the replicator with an EMPTY candidate list: a holder remembered from
-\* an earlier rule does not lower the shortage of a later rule - a phantom shortage that copies nothing.)
-Replicates(d) == \E k \in 1..Len(d.tasks) : Len(d.tasks[k].nodes) > 0
-Quiet(hs) == \A n \in hs : LET d == Decide27(n, hs, {}, {}) IN ~Replicates(d) /\ d.del = "none"
-NoTasks(hs) == \A n \in hs : ~Replicates(Decide27(n, hs, {}, {}))
-c\* a check "replicates" when it hands the replicator a task with at least one candidate node. (With overlapping
-\* rules the code as found keeps calling the replicator with an EMPTY candidate list: a holder remembered from
-\* an earlier rule does not lower the shortage of a later rule - a phantom shortage that copies nothing.)
-Replicates(d) == \E k \in 1..Len(d.tasks) : Len(d.tasks[k].nodes) > 0
-Quiet(hs) == \A n \in hs : LET d == Decide27(n, hs, {}, {}) IN ~Replicates(d) /\ d.del = "none"
-NoTasks(hs) == \A n \in hs : ~Replicates(Decide27(n, hs, {}, {}))
-k\* a check "replicates" when it hands the replicator a task with at least one candidate node. (With overlapping
-\* rules the code as found keeps calling the replicator with an EMPTY candidate list: a holder remembered from
-\* an earlier rule does not lower the shortage of a later rule - a phantom shortage that copies nothing.)
-Replicates(d) == \E k \in 1..Len(d.tasks) : Len(d.tasks[k].nodes) > 0
-Quiet(hs) == \A n \in hs : LET d == Decide27(n, hs, {}, {}) IN ~Replicates(d) /\ d.del = "none"
-NoTasks(hs) == \A n \in hs : ~Replicates(Decide27(n, hs, {}, {}))
- \* a check "replicates" when it hands the replicator a task with at least one candidate node. (With overlapping
-\* rules the code as found keeps calling the replicator with an EMPTY candidate list: a holder remembered from
-\* an earlier rule does not lower the shortage of a later rule - a phantom shortage that copies nothing.)
-Replicates(d) == \E k \in 1..Len(d.tasks) : Len(d.tasks[k].nodes) > 0
-Quiet(hs) == \A n \in hs : LET d == Decide27(n, hs, {}, {}) IN ~Replicates(d) /\ d.del = "none"
-NoTasks(hs) == \A n \in hs : ~Replicates(Decide27(n, hs, {}, {}))
-i\* a check "replicates" when it hands the replicator a task with at least one candidate node. (With overlapping
-\* rules the code as found keeps calling the replicator with an EMPTY candidate list: a holder remembered from
-\* an earlier rule does not lower the shortage of a later rule - a phantom shortage that copies nothing.)
-Replicates(d) == \E k \in 1..Len(d.tasks) : Len(d.tasks[k].nodes) > 0
-Quiet(hs) == \A n \in hs : LET d == Decide27(n, hs, {}, {}) IN ~Replicates(d) /\ d.del = "none"
-NoTasks(hs) == \A n \in hs : ~Replicates(Decide27(n, hs, {}, {}))
-s\* a check "replicates" when it hands the replicator a task with at least one candidate node. (With overlapping
-\* rules the code as found keeps calling the replicator with an EMPTY candidate list: a holder remembered from
-\* an earlier rule does not lower the shortage of a later rule - a phantom shortage that copies nothing.)
-Replicates(d) == \E k \in 1..Len(d.tasks) : Len(d.tasks[k].nodes) > 0
-Quiet(hs) == \A n \in hs : LET d == Decide27(n, hs, {}, {}) IN ~Replicates(d) /\ d.del = "none"
-NoTasks(hs) == \A n \in hs : ~Replicates(Decide27(n, hs, {}, {}))
-s\* a check "replicates" when it hands the replicator a task with at least one candidate node. (With overlapping
-\* rules the code as found keeps calling the replicator with an EMPTY candidate list: a holder remembered from
-\* an earlier rule does not lower the shortage of a later rule - a phantom shortage that copies nothing.)
-Replicates(d) == \E k \in 1..Len(d.tasks) : Len(d.tasks[k].nodes) > 0
-Quiet(hs) == \A n \in hs : LET d == Decide27(n, hs, {}, {}) IN ~Replicates(d) /\ d.del = "none"
-NoTasks(hs) == \A n \in hs : ~Replicates(Decide27(n, hs, {}, {}))
-u\* a check "replicates" when it hands the replicator a task with at least one candidate node. (With overlapping
-\* rules the code as found keeps calling the replicator with an EMPTY candidate list: a holder remembered from
-\* an earlier rule does not lower the shortage of a later rule - a phantom shortage that copies nothing.)
-Replicates(d) == \E k \in 1..Len(d.tasks) : Len(d.tasks[k].nodes) > 0
-Quiet(hs) == \A n \in hs : LET d == Decide27(n, hs, {}, {}) IN ~Replicates(d) /\ d.del = "none"
-NoTasks(hs) == \A n \in hs : ~Replicates(Decide27(n, hs, {}, {}))
-e\* a check "replicates" when it hands the replicator a task with at least one candidate node. (With overlapping
-\* rules the code as found keeps calling the replicator with an EMPTY candidate list: a holder remembered from
-\* an earlier rule does not lower the shortage of a later rule - a phantom shortage that copies nothing.)
-Replicates(d) == \E k \in 1..Len(d.tasks) : Len(d.tasks[k].nodes) > 0
-Quiet(hs) == \A n \in hs : LET d == Decide27(n, hs, {}, {}) IN ~Replicates(d) /\ d.del = "none"
-NoTasks(hs) == \A n \in hs : ~Replicates(Decide27(n, hs, {}, {}))
-s\* a check "replicates" when it hands the replicator a task with at least one candidate node. (With overlapping
-\* rules the code as found keeps calling the replicator with an EMPTY candidate list: a holder remembered from
-\* an earlier rule does not lower the shortage of a later rule - a phantom shortage that copies nothing.)
-Replicates(d) == \E k \in 1..Len(d.tasks) : Len(d.tasks[k].nodes) > 0
-Quiet(hs) == \A n \in hs : LET d == Decide27(n, hs, {}, {}) IN ~Replicates(d) /\ d.del = "none"
-NoTasks(hs) == \A n \in hs : ~Replicates(Decide27(n, hs, {}, {}))
- \* a check "replicates" when it hands the replicator a task with at least one candidate node. (With overlapping
-\* rules the code as found keeps calling the replicator with an EMPTY candidate list: a holder remembered from
-\* an earlier rule does not lower the shortage of a later rule - a phantom shortage that copies nothing.)
-Replicates(d) == \E k \in 1..Len(d.tasks) : Len(d.tasks[k].nodes) > 0
-Quiet(hs) == \A n \in hs : LET d == Decide27(n, hs, {}, {}) IN ~Replicates(d) /\ d.del = "none"
-NoTasks(hs) == \A n \in hs : ~Replicates(Decide27(n, hs, {}, {}))
-a\* a check "replicates" when it hands the replicator a task with at least one candidate node. (With overlapping
-\* rules the code as found keeps calling the replicator with an EMPTY candidate list: a holder remembered from
-\* an earlier rule does not lower the shortage of a later rule - a phantom shortage that copies nothing.)
-Replicates(d) == \E k \in 1..Len(d.tasks) : Len(d.tasks[k].nodes) > 0
-Quiet(hs) == \A n \in hs : LET d == Decide27(n, hs, {}, {}) IN ~Replicates(d) /\ d.del = "none"
-NoTasks(hs) == \A n \in hs : ~Replicates(Decide27(n, hs, {}, {}))
- \* a check "replicates" when it hands the replicator a task with at least one candidate node. (With overlapping
-\* rules the code as found keeps calling the replicator with an EMPTY candidate list: a holder remembered from
-\* an earlier rule does not lower the shortage of a later rule - a phantom shortage that copies nothing.)
-Replicates(d) == \E k \in 1..Len(d.tasks) : Len(d.tasks[k].nodes) > 0
-Quiet(hs) == \A n \in hs : LET d == Decide27(n, hs, {}, {}) IN ~Replicates(d) /\ d.del = "none"
-NoTasks(hs) == \A n \in hs : ~Replicates(Decide27(n, hs, {}, {}))
-r\* a check "replicates" when it hands the replicator a task with at least one candidate node. (With overlapping
-\* rules the code as found keeps calling the replicator with an EMPTY candidate list: a holder remembered from
-\* an earlier rule does not lower the shortage of a later rule - a phantom shortage that copies nothing.)
-Replicates(d) == \E k \in 1..Len(d.tasks) : Len(d.tasks[k].nodes) > 0
-Quiet(hs) == \A n \in hs : LET d == Decide27(n, hs, {}, {}) IN ~Replicates(d) /\ d.del = "none"
-NoTasks(hs) == \A n \in hs : ~Replicates(Decide27(n, hs, {}, {}))
-e\* a check "replicates" when it hands the replicator a task with at least one candidate node. (With overlapping
-\* rules the code as found keeps calling the replicator with an EMPTY candidate list: a holder remembered from
-\* an earlier rule does not lower the shortage of a later rule - a phantom shortage that copies nothing.)
-Replicates(d) == \E k \in 1..Len(d.tasks) : Len(d.tasks[k].nodes) > 0
-Quiet(hs) == \A n \in hs : LET d == Decide27(n, hs, {}, {}) IN ~Replicates(d) /\ d.del = "none"
-NoTasks(hs) == \A n \in hs : ~Replicates(Decide27(n, hs, {}, {}))
-p\* a check "replicates" when it hands the replicator a task with at least one candidate node. (With overlapping
-\* rules the code as found keeps calling the replicator with an EMPTY candidate list: a holder remembered from
-\* an earlier rule does not lower the shortage of a later rule - a phantom shortage that copies nothing.)
-Replicates(d) == \E k \in 1..Len(d.tasks) : Len(d.tasks[k].nodes) > 0
-Quiet(hs) == \A n \in hs : LET d == Decide27(n, hs, {}, {}) IN ~Replicates(d) /\ d.del = "none"
-NoTasks(hs) == \A n \in hs : ~Replicates(Decide27(n, hs, {}, {}))
-l\* a check "replicates" when it hands the replicator a task with at least one candidate node. (With overlapping
-\* rules the code as found keeps calling the replicator with an EMPTY candidate list: a holder remembered from
-\* an earlier rule does not lower the shortage of a later rule - a phantom shortage that copies nothing.)
-Replicates(d) == \E k \in 1..Len(d.tasks) : Len(d.tasks[k].nodes) > 0
-Quiet(hs) == \A n \in hs : LET d == Decide27(n, hs, {}, {}) IN ~Replicates(d) /\ d.del = "none"
-NoTasks(hs) == \A n \in hs : ~Replicates(Decide27(n, hs, {}, {}))
-i\* a check "replicates" when it hands the replicator a task with at least one candidate node. (With overlapping
-\* rules the code as found keeps calling the replicator with an EMPTY candidate list: a holder remembered from
-\* an earlier rule does not lower the shortage of a later rule - a phantom shortage that copies nothing.)
-Replicates(d) == \E k \in 1..Len(d.tasks) : Len(d.tasks[k].nodes) > 0
-Quiet(hs) == \A n \in hs : LET d == Decide27(n, hs, {}, {}) IN ~Replicates(d) /\ d.del = "none"
-NoTasks(hs) == \A n \in hs : ~Replicates(Decide27(n, hs, {}, {}))
-c\* a check "replicates" when it hands the replicator a task with at least one candidate node. (With overlapping
-\* rules the code as found keeps calling the replicator with an EMPTY candidate list: a holder remembered from
-\* an earlier rule does not lower the shortage of a later rule - a phantom shortage that copies nothing.)
-Replicates(d) == \E k \in 1..Len(d.tasks) : Len(d.tasks[k].nodes) > 0
-Quiet(hs) == \A n \in hs : LET d == Decide27(n, hs, {}, {}) IN ~Replicates(d) /\ d.del = "none"
-NoTasks(hs) == \A n \in hs : ~Replicates(Decide27(n, hs, {}, {}))
-a\* a check "replicates" when it hands the replicator a task with at least one candidate node. (With overlapping
-\* rules the code as found keeps calling the replicator with an EMPTY candidate list: a holder remembered from
-\* an earlier rule does not lower the shortage of a later rule - a phantom shortage that copies nothing.)
-Replicates(d) == \E k \in 1..Len(d.tasks) : Len(d.tasks[k].nodes) > 0
-Quiet(hs) == \A n \in hs : LET d == Decide27(n, hs, {}, {}) IN ~Replicates(d) /\ d.del = "none"
-NoTasks(hs) == \A n \in hs : ~Replicates(Decide27(n, hs, {}, {}))
-t\* a check "replicates" when it hands the replicator a task with at least one candidate node. (With overlapping
-\* rules the code as found keeps calling the replicator with an EMPTY candidate list: a holder remembered from
-\* an earlier rule does not lower the shortage of a later rule - a phantom shortage that copies nothing.)
-Replicates(d) == \E k \in 1..Len(d.tasks) : Len(d.tasks[k].nodes) > 0
-Quiet(hs) == \A n \in hs : LET d == Decide27(n, hs, {}, {}) IN ~Replicates(d) /\ d.del = "none"
-NoTasks(hs) == \A n \in hs : ~Replicates(Decide27(n, hs, {}, {}))
-i\* a check "replicates" when it hands the replicator a task with at least one candidate node. (With overlapping
-\* rules the code as found keeps calling the replicator with an EMPTY candidate list: a holder remembered from
-\* an earlier rule does not lower the shortage of a later rule - a phantom shortage that copies nothing.)
-Replicates(d) == \E k \in 1..Len(d.tasks) : Len(d.tasks[k].nodes) > 0
-Quiet(hs) == \A n \in hs : LET d == Decide27(n, hs, {}, {}) IN ~Replicates(d) /\ d.del = "none"
-NoTasks(hs) == \A n \in hs : ~Replicates(Decide27(n, hs, {}, {}))
-o\* a check "replicates" when it hands the replicator a task with at least one candidate node. (With overlapping
-\* rules the code as found keeps calling the replicator with an EMPTY candidate list: a holder remembered from
-\* an earlier rule does not lower the shortage of a later rule - a phantom shortage that copies nothing.)
-Replicates(d) == \E k \in 1..Len(d.tasks) : Len(d.tasks[k].nodes) > 0
-Quiet(hs) == \A n \in hs : LET d == Decide27(n, hs, {}, {}) IN ~Replicates(d) /\ d.del = "none"
-NoTasks(hs) == \A n \in hs : ~Replicates(Decide27(n, hs, {}, {}))
-n\* a check "replicates" when it hands the replicator a task with at least one candidate node. (With overlapping
-\* rules the code as found keeps calling the replicator with an EMPTY candidate list: a holder remembered from
-\* an earlier rule does not lower the shortage of a later rule - a phantom shortage that copies nothing.)
-Replicates(d) == \E k \in 1..Len(d.tasks) : Len(d.tasks[k].nodes) > 0
-Quiet(hs) == \A n \in hs : LET d == Decide27(n, hs, {}, {}) IN ~Replicates(d) /\ d.del = "none"
-NoTasks(hs) == \A n \in hs : ~Replicates(Decide27(n, hs, {}, {}))
- \* a check "replicates" when it hands the replicator a task with at least one candidate node. (With overlapping
-\* rules the code as found keeps calling the replicator with an EMPTY candidate list: a holder remembered from
-\* an earlier rule does not lower the shortage of a later rule - a phantom shortage that copies nothing.)
-Replicates(d) == \E k \in 1..Len(d.tasks) : Len(d.tasks[k].nodes) > 0
-Quiet(hs) == \A n \in hs : LET d == Decide27(n, hs, {}, {}) IN ~Replicates(d) /\ d.del = "none"
-NoTasks(hs) == \A n \in hs : ~Replicates(Decide27(n, hs, {}, {}))
-t\* a check "replicates" when it hands the replicator a task with at least one candidate node. (With overlapping
-\* rules the code as found keeps calling the replicator with an EMPTY candidate list: a holder remembered from
-\* an earlier rule does not lower the shortage of a later rule - a phantom shortage that copies nothing.)
-Replicates(d) == \E k \in 1..Len(d.tasks) : Len(d.tasks[k].nodes) > 0
-Quiet(hs) == \A n \in hs : LET d == Decide27(n, hs, {}, {}) IN ~Replicates(d) /\ d.del = "none"
-NoTasks(hs) == \A n \in hs : ~Replicates(Decide27(n, hs, {}, {}))
-a\* a check "replicates" when it hands the replicator a task with at least one candidate node. (With overlapping
-\* rules the code as found keeps calling the replicator with an EMPTY candidate list: a holder remembered from
-\* an earlier rule does not lower the shortage of a later rule - a phantom shortage that copies nothing.)
-Replicates(d) == \E k \in 1..Len(d.tasks) : Len(d.tasks[k].nodes) > 0
-Quiet(hs) == \A n \in hs : LET d == Decide27(n, hs, {}, {}) IN ~Replicates(d) /\ d.del = "none"
-NoTasks(hs) == \A n \in hs : ~Replicates(Decide27(n, hs, {}, {}))
-s\* a check "replicates" when it hands the replicator a task with at least one candidate node. (With overlapping
-\* rules the code as found keeps calling the replicator with an EMPTY candidate list: a holder remembered from
-\* an earlier rule does not lower the shortage of a later rule - a phantom shortage that copies nothing.)
-Replicates(d) == \E k \in 1..Len(d.tasks) : Len(d.tasks[k].nodes) > 0
-Quiet(hs) == \A n \in hs : LET d == Decide27(n, hs, {}, {}) IN ~Replicates(d) /\ d.del = "none"
-NoTasks(hs) == \A n \in hs : ~Replicates(Decide27(n, hs, {}, {}))
-k\* a check "replicates" when it hands the replicator a task with at least one candidate node. (With overlapping
-\* rules the code as found keeps calling the replicator with an EMPTY candidate list: a holder remembered from
-\* an earlier rule does not lower the shortage of a later rule - a phantom shortage that copies nothing.)
-Replicates(d) == \E k \in 1..Len(d.tasks) : Len(d.tasks[k].nodes) > 0
-Quiet(hs) == \A n \in hs : LET d == Decide27(n, hs, {}, {}) IN ~Replicates(d) /\ d.del = "none"
-NoTasks(hs) == \A n \in hs : ~Replicates(Decide27(n, hs, {}, {}))
-.\* a check "replicates" when it hands the replicator a task with at least one candidate node. (With overlapping
-\* rules the code as found keeps calling the replicator with an EMPTY candidate list: a holder remembered from
-\* an earlier rule does not lower the shortage of a later rule - a phantom shortage that copies nothing.)
-Replicates(d) == \E k \in 1..Len(d.tasks) : Len(d.tasks[k].nodes) > 0
-Quiet(hs) == \A n \in hs : LET d == Decide27(n, hs, {}, {}) IN ~Replicates(d) /\ d.del = "none"
-NoTasks(hs) == \A n \in hs : ~Replicates(Decide27(n, hs, {}, {}))
-
-\* a check "replicates" when it hands the replicator a task with at least one candidate node. (With overlapping
-\* rules the code as found keeps calling the replicator with an EMPTY candidate list: a holder remembered from
-\* an earlier rule does not lower the shortage of a later rule - a phantom shortage that copies nothing.)
-Replicates(d) == \E k \in 1..Len(d.tasks) : Len(d.tasks[k].nodes) > 0
-Quiet(hs) == \A n \in hs : LET d == Decide27(n, hs, {}, {}) IN ~Replicates(d) /\ d.del = "none"
-NoTasks(hs) == \A n \in hs : ~Replicates(Decide27(n, hs, {}, {}))
- \* a check "replicates" when it hands the replicator a task with at least one candidate node. (With overlapping
-\* rules the code as found keeps calling the replicator with an EMPTY candidate list: a holder remembered from
-\* an earlier rule does not lower the shortage of a later rule - a phantom shortage that copies nothing.)
-Replicates(d) == \E k \in 1..Len(d.tasks) : Len(d.tasks[k].nodes) > 0
-Quiet(hs) == \A n \in hs : LET d == Decide27(n, hs, {}, {}) IN ~Replicates(d) /\ d.del = "none"
-NoTasks(hs) == \A n \in hs : ~Replicates(Decide27(n, hs, {}, {}))
- \* a check "replicates" when it hands the replicator a task with at least one candidate node. (With overlapping
-\* rules the code as found keeps calling the replicator with an EMPTY candidate list: a holder remembered from
-\* an earlier rule does not lower the shortage of a later rule - a phantom shortage that copies nothing.)
-Replicates(d) == \E k \in 1..Len(d.tasks) : Len(d.tasks[k].nodes) > 0
-Quiet(hs) == \A n \in hs : LET d == Decide27(n, hs, {}, {}) IN ~Replicates(d) /\ d.del = "none"
-NoTasks(hs) == \A n \in hs : ~Replicates(Decide27(n, hs, {}, {}))
- \* a check "replicates" when it hands the replicator a task with at least one candidate node. (With overlapping
-\* rules the code as found keeps calling the replicator with an EMPTY candidate list: a holder remembered from
-\* an earlier rule does not lower the shortage of a later rule - a phantom shortage that copies nothing.)
-Replicates(d) == \E k \in 1..Len(d.tasks) : Len(d.tasks[k].nodes) > 0
-Quiet(hs) == \A n \in hs : LET d == Decide27(n, hs, {}, {}) IN ~Replicates(d) /\ d.del = "none"
-NoTasks(hs) == \A n \in hs : ~Replicates(Decide27(n, hs, {}, {}))
-B\* a check "replicates" when it hands the replicator a task with at least one candidate node. (With overlapping
-\* rules the code as found keeps calling the replicator with an EMPTY candidate list: a holder remembered from
-\* an earlier rule does not lower the shortage of a later rule - a phantom shortage that copies nothing.)
-Replicates(d) == \E k \in 1..Len(d.tasks) : Len(d.tasks[k].nodes) > 0
-Quiet(hs) == \A n \in hs : LET d == Decide27(n, hs, {}, {}) IN ~Replicates(d) /\ d.del = "none"
-NoTasks(hs) == \A n \in hs : ~Replicates(Decide27(n, hs, {}, {}))
-o\* a check "replicates" when it hands the replicator a task with at least one candidate node. (With overlapping
-\* rules the code as found keeps calling the replicator with an EMPTY candidate list: a holder remembered from
-\* an earlier rule does not lower the shortage of a later rule - a phantom shortage that copies nothing.)
-Replicates(d) == \E k \in 1..Len(d.tasks) : Len(d.tasks[k].nodes) > 0
-Quiet(hs) == \A n \in hs : LET d == Decide27(n, hs, {}, {}) IN ~Replicates(d) /\ d.del = "none"
-NoTasks(hs) == \A n \in hs : ~Replicates(Decide27(n, hs, {}, {}))
-u\* a check "replicates" when it hands the replicator a task with at least one candidate node. (With overlapping
-\* rules the code as found keeps calling the replicator with an EMPTY candidate list: a holder remembered from
-\* an earlier rule does not lower the shortage of a later rule - a phantom shortage that copies nothing.)
-Replicates(d) == \E k \in 1..Len(d.tasks) : Len(d.tasks[k].nodes) > 0
-Quiet(hs) == \A n \in hs : LET d == Decide27(n, hs, {}, {}) IN ~Replicates(d) /\ d.del = "none"
-NoTasks(hs) == \A n \in hs : ~Replicates(Decide27(n, hs, {}, {}))
-n\* a check "replicates" when it hands the replicator a task with at least one candidate node. (With overlapping
-\* rules the code as found keeps calling the replicator with an EMPTY candidate list: a holder remembered from
-\* an earlier rule does not lower the shortage of a later rule - a phantom shortage that copies nothing.)
-Replicates(d) == \E k \in 1..Len(d.tasks) : Len(d.tasks[k].nodes) > 0
-Quiet(hs) == \A n \in hs : LET d == Decide27(n, hs, {}, {}) IN ~Replicates(d) /\ d.del = "none"
-NoTasks(hs) == \A n \in hs : ~Replicates(Decide27(n, hs, {}, {}))
-d\* a check "replicates" when it hands the replicator a task with at least one candidate node. (With overlapping
-\* rules the code as found keeps calling the replicator with an EMPTY candidate list: a holder remembered from
-\* an earlier rule does not lower the shortage of a later rule - a phantom shortage that copies nothing.)
-Replicates(d) == \E k \in 1..Len(d.tasks) : Len(d.tasks[k].nodes) > 0
-Quiet(hs) == \A n \in hs : LET d == Decide27(n, hs, {}, {}) IN ~Replicates(d) /\ d.del = "none"
-NoTasks(hs) == \A n \in hs : ~Replicates(Decide27(n, hs, {}, {}))
-e\* a check "replicates" when it hands the replicator a task with at least one candidate node. (With overlapping
-\* rules the code as found keeps calling the replicator with an EMPTY candidate list: a holder remembered from
-\* an earlier rule does not lower the shortage of a later rule - a phantom shortage that copies nothing.)
-Replicates(d) == \E k \in 1..Len(d.tasks) : Len(d.tasks[k].nodes) > 0
-Quiet(hs) == \A n \in hs : LET d == Decide27(n, hs, {}, {}) IN ~Replicates(d) /\ d.del = "none"
-NoTasks(hs) == \A n \in hs : ~Replicates(Decide27(n, hs, {}, {}))
-d\* a check "replicates" when it hands the replicator a task with at least one candidate node. (With overlapping
-\* rules the code as found keeps calling the replicator with an EMPTY candidate list: a holder remembered from
-\* an earlier rule does not lower the shortage of a later rule - a phantom shortage that copies nothing.)
-Replicates(d) == \E k \in 1..Len(d.tasks) : Len(d.tasks[k].nodes) > 0
-Quiet(hs) == \A n \in hs : LET d == Decide27(n, hs, {}, {}) IN ~Replicates(d) /\ d.del = "none"
-NoTasks(hs) == \A n \in hs : ~Replicates(Decide27(n, hs, {}, {}))
- \* a check "replicates" when it hands the replicator a task with at least one candidate node. (With overlapping
-\* rules the code as found keeps calling the replicator with an EMPTY candidate list: a holder remembered from
-\* an earlier rule does not lower the shortage of a later rule - a phantom shortage that copies nothing.)
-Replicates(d) == \E k \in 1..Len(d.tasks) : Len(d.tasks[k].nodes) > 0
-Quiet(hs) == \A n \in hs : LET d == Decide27(n, hs, {}, {}) IN ~Replicates(d) /\ d.del = "none"
-NoTasks(hs) == \A n \in hs : ~Replicates(Decide27(n, hs, {}, {}))
-f\* a check "replicates" when it hands the replicator a task with at least one candidate node. (With overlapping
-\* rules the code as found keeps calling the replicator with an EMPTY candidate list: a holder remembered from
-\* an earlier rule does not lower the shortage of a later rule - a phantom shortage that copies nothing.)
-Replicates(d) == \E k \in 1..Len(d.tasks) : Len(d.tasks[k].nodes) > 0
-Quiet(hs) == \A n \in hs : LET d == Decide27(n, hs, {}, {}) IN ~Replicates(d) /\ d.del = "none"
-NoTasks(hs) == \A n \in hs : ~Replicates(Decide27(n, hs, {}, {}))
-o\* a check "replicates" when it hands the replicator a task with at least one candidate node. (With overlapping
-\* rules the code as found keeps calling the replicator with an EMPTY candidate list: a holder remembered from
-\* an earlier rule does not lower the shortage of a later rule - a phantom shortage that copies nothing.)
-Replicates(d) == \E k \in 1..Len(d.tasks) : Len(d.tasks[k].nodes) > 0
-Quiet(hs) == \A n \in hs : LET d == Decide27(n, hs, {}, {}) IN ~Replicates(d) /\ d.del = "none"
-NoTasks(hs) == \A n \in hs : ~Replicates(Decide27(n, hs, {}, {}))
-r\* a check "replicates" when it hands the replicator a task with at least one candidate node. (With overlapping
-\* rules the code as found keeps calling the replicator with an EMPTY candidate list: a holder remembered from
-\* an earlier rule does not lower the shortage of a later rule - a phantom shortage that copies nothing.)
-Replicates(d) == \E k \in 1..Len(d.tasks) : Len(d.tasks[k].nodes) > 0
-Quiet(hs) == \A n \in hs : LET d == Decide27(n, hs, {}, {}) IN ~Replicates(d) /\ d.del = "none"
-NoTasks(hs) == \A n \in hs : ~Replicates(Decide27(n, hs, {}, {}))
-m\* a check "replicates" when it hands the replicator a task with at least one candidate node. (With overlapping
-\* rules the code as found keeps calling the replicator with an EMPTY candidate list: a holder remembered from
-\* an earlier rule does not lower the shortage of a later rule - a phantom shortage that copies nothing.)
-Replicates(d) == \E k \in 1..Len(d.tasks) : Len(d.tasks[k].nodes) > 0
-Quiet(hs) == \A n \in hs : LET d == Decide27(n, hs, {}, {}) IN ~Replicates(d) /\ d.del = "none"
-NoTasks(hs) == \A n \in hs : ~Replicates(Decide27(n, hs, {}, {}))
- \* a check "replicates" when it hands the replicator a task with at least one candidate node. (With overlapping
-\* rules the code as found keeps calling the replicator with an EMPTY candidate list: a holder remembered from
-\* an earlier rule does not lower the shortage of a later rule - a phantom shortage that copies nothing.)
-Replicates(d) == \E k \in 1..Len(d.tasks) : Len(d.tasks[k].nodes) > 0
-Quiet(hs) == \A n \in hs : LET d == Decide27(n, hs, {}, {}) IN ~Replicates(d) /\ d.del = "none"
-NoTasks(hs) == \A n \in hs : ~Replicates(Decide27(n, hs, {}, {}))
-u\* a check "replicates" when it hands the replicator a task with at least one candidate node. (With overlapping
-\* rules the code as found keeps calling the replicator with an EMPTY candidate list: a holder remembered from
-\* an earlier rule does not lower the shortage of a later rule - a phantom shortage that copies nothing.)
-Replicates(d) == \E k \in 1..Len(d.tasks) : Len(d.tasks[k].nodes) > 0
-Quiet(hs) == \A n \in hs : LET d == Decide27(n, hs, {}, {}) IN ~Replicates(d) /\ d.del = "none"
-NoTasks(hs) == \A n \in hs : ~Replicates(Decide27(n, hs, {}, {}))
-s\* a check "replicates" when it hands the replicator a task with at least one candidate node. (With overlapping
-\* rules the code as found keeps calling the replicator with an EMPTY candidate list: a holder remembered from
-\* an earlier rule does not lower the shortage of a later rule - a phantom shortage that copies nothing.)
-Replicates(d) == \E k \in 1..Len(d.tasks) : Len(d.tasks[k].nodes) > 0
-Quiet(hs) == \A n \in hs : LET d == Decide27(n, hs, {}, {}) IN ~Replicates(d) /\ d.del = "none"
-NoTasks(hs) == \A n \in hs : ~Replicates(Decide27(n, hs, {}, {}))
-e\* a check "replicates" when it hands the replicator a task with at least one candidate node. (With overlapping
-\* rules the code as found keeps calling the replicator with an EMPTY candidate list: a holder remembered from
-\* an earlier rule does not lower the shortage of a later rule - a phantom shortage that copies nothing.)
-Replicates(d) == \E k \in 1..Len(d.tasks) : Len(d.tasks[k].nodes) > 0
-Quiet(hs) == \A n \in hs : LET d == Decide27(n, hs, {}, {}) IN ~Replicates(d) /\ d.del = "none"
-NoTasks(hs) == \A n \in hs : ~Replicates(Decide27(n, hs, {}, {}))
-d\* a check "replicates" when it hands the replicator a task with at least one candidate node. (With overlapping
-\* rules the code as found keeps calling the replicator with an EMPTY candidate list: a holder remembered from
-\* an earlier rule does not lower the shortage of a later rule - a phantom shortage that copies nothing.)
-Replicates(d) == \E k \in 1..Len(d.tasks) : Len(d.tasks[k].nodes) > 0
-Quiet(hs) == \A n \in hs : LET d == Decide27(n, hs, {}, {}) IN ~Replicates(d) /\ d.del = "none"
-NoTasks(hs) == \A n \in hs : ~Replicates(Decide27(n, hs, {}, {}))
- \* a check "replicates" when it hands the replicator a task with at least one candidate node. (With overlapping
-\* rules the code as found keeps calling the replicator with an EMPTY candidate list: a holder remembered from
-\* an earlier rule does not lower the shortage of a later rule - a phantom shortage that copies nothing.)
-Replicates(d) == \E k \in 1..Len(d.tasks) : Len(d.tasks[k].nodes) > 0
-Quiet(hs) == \A n \in hs : LET d == Decide27(n, hs, {}, {}) IN ~Replicates(d) /\ d.del = "none"
-NoTasks(hs) == \A n \in hs : ~Replicates(Decide27(n, hs, {}, {}))
-o\* a check "replicates" when it hands the replicator a task with at least one candidate node. (With overlapping
-\* rules the code as found keeps calling the replicator with an EMPTY candidate list: a holder remembered from
-\* an earlier rule does not lower the shortage of a later rule - a phantom shortage that copies nothing.)
-Replicates(d) == \E k \in 1..Len(d.tasks) : Len(d.tasks[k].nodes) > 0
-Quiet(hs) == \A n \in hs : LET d == Decide27(n, hs, {}, {}) IN ~Replicates(d) /\ d.del = "none"
-NoTasks(hs) == \A n \in hs : ~Replicates(Decide27(n, hs, {}, {}))
-n\* a check "replicates" when it hands the replicator a task with at least one candidate node. (With overlapping
-\* rules the code as found keeps calling the replicator with an EMPTY candidate list: a holder remembered from
-\* an earlier rule does not lower the shortage of a later rule - a phantom shortage that copies nothing.)
-Replicates(d) == \E k \in 1..Len(d.tasks) : Len(d.tasks[k].nodes) > 0
-Quiet(hs) == \A n \in hs : LET d == Decide27(n, hs, {}, {}) IN ~Replicates(d) /\ d.del = "none"
-NoTasks(hs) == \A n \in hs : ~Replicates(Decide27(n, hs, {}, {}))
- \* a check "replicates" when it hands the replicator a task with at least one candidate node. (With overlapping
-\* rules the code as found keeps calling the replicator with an EMPTY candidate list: a holder remembered from
-\* an earlier rule does not lower the shortage of a later rule - a phantom shortage that copies nothing.)
-Replicates(d) == \E k \in 1..Len(d.tasks) : Len(d.tasks[k].nodes) > 0
-Quiet(hs) == \A n \in hs : LET d == Decide27(n, hs, {}, {}) IN ~Replicates(d) /\ d.del = "none"
-NoTasks(hs) == \A n \in hs : ~Replicates(Decide27(n, hs, {}, {}))
-t\* a check "replicates" when it hands the replicator a task with at least one candidate node. (With overlapping
-\* rules the code as found keeps calling the replicator with an EMPTY candidate list: a holder remembered from
-\* an earlier rule does not lower the shortage of a later rule - a phantom shortage that copies nothing.)
-Replicates(d) == \E k \in 1..Len(d.tasks) : Len(d.tasks[k].nodes) > 0
-Quiet(hs) == \A n \in hs : LET d == Decide27(n, hs, {}, {}) IN ~Replicates(d) /\ d.del = "none"
-NoTasks(hs) == \A n \in hs : ~Replicates(Decide27(n, hs, {}, {}))
-h\* a check "replicates" when it hands the replicator a task with at least one candidate node. (With overlapping
-\* rules the code as found keeps calling the replicator with an EMPTY candidate list: a holder remembered from
-\* an earlier rule does not lower the shortage of a later rule - a phantom shortage that copies nothing.)
-Replicates(d) == \E k \in 1..Len(d.tasks) : Len(d.tasks[k].nodes) > 0
-Quiet(hs) == \A n \in hs : LET d == Decide27(n, hs, {}, {}) IN ~Replicates(d) /\ d.del = "none"
-NoTasks(hs) == \A n \in hs : ~Replicates(Decide27(n, hs, {}, {}))
-e\* a check "replicates" when it hands the replicator a task with at least one candidate node. (With overlapping
-\* rules the code as found keeps calling the replicator with an EMPTY candidate list: a holder remembered from
-\* an earlier rule does not lower the shortage of a later rule - a phantom shortage that copies nothing.)
-Replicates(d) == \E k \in 1..Len(d.tasks) : Len(d.tasks[k].nodes) > 0
-Quiet(hs) == \A n \in hs : LET d == Decide27(n, hs, {}, {}) IN ~Replicates(d) /\ d.del = "none"
-NoTasks(hs) == \A n \in hs : ~Replicates(Decide27(n, hs, {}, {}))
- \* a check "replicates" when it hands the replicator a task with at least one candidate node. (With overlapping
-\* rules the code as found keeps calling the replicator with an EMPTY candidate list: a holder remembered from
-\* an earlier rule does not lower the shortage of a later rule - a phantom shortage that copies nothing.)
-Replicates(d) == \E k \in 1..Len(d.tasks) : Len(d.tasks[k].nodes) > 0
-Quiet(hs) == \A n \in hs : LET d == Decide27(n, hs, {}, {}) IN ~Replicates(d) /\ d.del = "none"
-NoTasks(hs) == \A n \in hs : ~Replicates(Decide27(n, hs, {}, {}))
-r\* a check "replicates" when it hands the replicator a task with at least one candidate node. (With overlapping
-\* rules the code as found keeps calling the replicator with an EMPTY candidate list: a holder remembered from
-\* an earlier rule does not lower the shortage of a later rule - a phantom shortage that copies nothing.)
-Replicates(d) == \E k \in 1..Len(d.tasks) : Len(d.tasks[k].nodes) > 0
-Quiet(hs) == \A n \in hs : LET d == Decide27(n, hs, {}, {}) IN ~Replicates(d) /\ d.del = "none"
-NoTasks(hs) == \A n \in hs : ~Replicates(Decide27(n, hs, {}, {}))
-e\* a check "replicates" when it hands the replicator a task with at least one candidate node. (With overlapping
-\* rules the code as found keeps calling the replicator with an EMPTY candidate list: a holder remembered from
-\* an earlier rule does not lower the shortage of a later rule - a phantom shortage that copies nothing.)
-Replicates(d) == \E k \in 1..Len(d.tasks) : Len(d.tasks[k].nodes) > 0
-Quiet(hs) == \A n \in hs : LET d == Decide27(n, hs, {}, {}) IN ~Replicates(d) /\ d.del = "none"
-NoTasks(hs) == \A n \in hs : ~Replicates(Decide27(n, hs, {}, {}))
-a\* a check "replicates" when it hands the replicator a task with at least one candidate node. (With overlapping
-\* rules the code as found keeps calling the replicator with an EMPTY candidate list: a holder remembered from
-\* an earlier rule does not lower the shortage of a later rule - a phantom shortage that copies nothing.)
-Replicates(d) == \E k \in 1..Len(d.tasks) : Len(d.tasks[k].nodes) > 0
-Quiet(hs) == \A n \in hs : LET d == Decide27(n, hs, {}, {}) IN ~Replicates(d) /\ d.del = "none"
-NoTasks(hs) == \A n \in hs : ~Replicates(Decide27(n, hs, {}, {}))
-l\* a check "replicates" when it hands the replicator a task with at least one candidate node. (With overlapping
-\* rules the code as found keeps calling the replicator with an EMPTY candidate list: a holder remembered from
-\* an earlier rule does not lower the shortage of a later rule - a phantom shortage that copies nothing.)
-Replicates(d) == \E k \in 1..Len(d.tasks) : Len(d.tasks[k].nodes) > 0
-Quiet(hs) == \A n \in hs : LET d == Decide27(n, hs, {}, {}) IN ~Replicates(d) /\ d.del = "none"
-NoTasks(hs) == \A n \in hs : ~Replicates(Decide27(n, hs, {}, {}))
- \* a check "replicates" when it hands the replicator a task with at least one candidate node. (With overlapping
-\* rules the code as found keeps calling the replicator with an EMPTY candidate list: a holder remembered from
-\* an earlier rule does not lower the shortage of a later rule - a phantom shortage that copies nothing.)
-Replicates(d) == \E k \in 1..Len(d.tasks) : Len(d.tasks[k].nodes) > 0
-Quiet(hs) == \A n \in hs : LET d == Decide27(n, hs, {}, {}) IN ~Replicates(d) /\ d.del = "none"
-NoTasks(hs) == \A n \in hs : ~Replicates(Decide27(n, hs, {}, {}))
-c\* a check "replicates" when it hands the replicator a task with at least one candidate node. (With overlapping
-\* rules the code as found keeps calling the replicator with an EMPTY candidate list: a holder remembered from
-\* an earlier rule does not lower the shortage of a later rule - a phantom shortage that copies nothing.)
-Replicates(d) == \E k \in 1..Len(d.tasks) : Len(d.tasks[k].nodes) > 0
-Quiet(hs) == \A n \in hs : LET d == Decide27(n, hs, {}, {}) IN ~Replicates(d) /\ d.del = "none"
-NoTasks(hs) == \A n \in hs : ~Replicates(Decide27(n, hs, {}, {}))
-o\* a check "replicates" when it hands the replicator a task with at least one candidate node. (With overlapping
-\* rules the code as found keeps calling the replicator with an EMPTY candidate list: a holder remembered from
-\* an earlier rule does not lower the shortage of a later rule - a phantom shortage that copies nothing.)
-Replicates(d) == \E k \in 1..Len(d.tasks) : Len(d.tasks[k].nodes) > 0
-Quiet(hs) == \A n \in hs : LET d == Decide27(n, hs, {}, {}) IN ~Replicates(d) /\ d.del = "none"
-NoTasks(hs) == \A n \in hs : ~Replicates(Decide27(n, hs, {}, {}))
-d\* a check "replicates" when it hands the replicator a task with at least one candidate node. (With overlapping
-\* rules the code as found keeps calling the replicator with an EMPTY candidate list: a holder remembered from
-\* an earlier rule does not lower the shortage of a later rule - a phantom shortage that copies nothing.)
-Replicates(d) == \E k \in 1..Len(d.tasks) : Len(d.tasks[k].nodes) > 0
-Quiet(hs) == \A n \in hs : LET d == Decide27(n, hs, {}, {}) IN ~Replicates(d) /\ d.del = "none"
-NoTasks(hs) == \A n \in hs : ~Replicates(Decide27(n, hs, {}, {}))
-e\* a check "replicates" when it hands the replicator a task with at least one candidate node. (With overlapping
-\* rules the code as found keeps calling the replicator with an EMPTY candidate list: a holder remembered from
-\* an earlier rule does not lower the shortage of a later rule - a phantom shortage that copies nothing.)
-Replicates(d) == \E k \in 1..Len(d.tasks) : Len(d.tasks[k].nodes) > 0
-Quiet(hs) == \A n \in hs : LET d == Decide27(n, hs, {}, {}) IN ~Replicates(d) /\ d.del = "none"
-NoTasks(hs) == \A n \in hs : ~Replicates(Decide27(n, hs, {}, {}))
-:\* a check "replicates" when it hands the replicator a task with at least one candidate node. (With overlapping
-\* rules the code as found keeps calling the replicator with an EMPTY candidate list: a holder remembered from
-\* an earlier rule does not lower the shortage of a later rule - a phantom shortage that copies nothing.)
-Replicates(d) == \E k \in 1..Len(d.tasks) : Len(d.tasks[k].nodes) > 0
-Quiet(hs) == \A n \in hs : LET d == Decide27(n, hs, {}, {}) IN ~Replicates(d) /\ d.del = "none"
-NoTasks(hs) == \A n \in hs : ~Replicates(Decide27(n, hs, {}, {}))
- \* a check "replicates" when it hands the replicator a task with at least one candidate node. (With overlapping
-\* rules the code as found keeps calling the replicator with an EMPTY candidate list: a holder remembered from
-\* an earlier rule does not lower the shortage of a later rule - a phantom shortage that copies nothing.)
-Replicates(d) == \E k \in 1..Len(d.tasks) : Len(d.tasks[k].nodes) > 0
-Quiet(hs) == \A n \in hs : LET d == Decide27(n, hs, {}, {}) IN ~Replicates(d) /\ d.del = "none"
-NoTasks(hs) == \A n \in hs : ~Replicates(Decide27(n, hs, {}, {}))
-n\* a check "replicates" when it hands the replicator a task with at least one candidate node. (With overlapping
-\* rules the code as found keeps calling the replicator with an EMPTY candidate list: a holder remembered from
-\* an earlier rule does not lower the shortage of a later rule - a phantom shortage that copies nothing.)
-Replicates(d) == \E k \in 1..Len(d.tasks) : Len(d.tasks[k].nodes) > 0
-Quiet(hs) == \A n \in hs : LET d == Decide27(n, hs, {}, {}) IN ~Replicates(d) /\ d.del = "none"
-NoTasks(hs) == \A n \in hs : ~Replicates(Decide27(n, hs, {}, {}))
-o\* a check "replicates" when it hands the replicator a task with at least one candidate node. (With overlapping
-\* rules the code as found keeps calling the replicator with an EMPTY candidate list: a holder remembered from
-\* an earlier rule does not lower the shortage of a later rule - a phantom shortage that copies nothing.)
-Replicates(d) == \E k \in 1..Len(d.tasks) : Len(d.tasks[k].nodes) > 0
-Quiet(hs) == \A n \in hs : LET d == Decide27(n, hs, {}, {}) IN ~Replicates(d) /\ d.del = "none"
-NoTasks(hs) == \A n \in hs : ~Replicates(Decide27(n, hs, {}, {}))
-d\* a check "replicates" when it hands the replicator a task with at least one candidate node. (With overlapping
-\* rules the code as found keeps calling the replicator with an EMPTY candidate list: a holder remembered from
-\* an earlier rule does not lower the shortage of a later rule - a phantom shortage that copies nothing.)
-Replicates(d) == \E k \in 1..Len(d.tasks) : Len(d.tasks[k].nodes) > 0
-Quiet(hs) == \A n \in hs : LET d == Decide27(n, hs, {}, {}) IN ~Replicates(d) /\ d.del = "none"
-NoTasks(hs) == \A n \in hs : ~Replicates(Decide27(n, hs, {}, {}))
-e\* a check "replicates" when it hands the replicator a task with at least one candidate node. (With overlapping
-\* rules the code as found keeps calling the replicator with an EMPTY candidate list: a holder remembered from
-\* an earlier rule does not lower the shortage of a later rule - a phantom shortage that copies nothing.)
-Replicates(d) == \E k \in 1..Len(d.tasks) : Len(d.tasks[k].nodes) > 0
-Quiet(hs) == \A n \in hs : LET d == Decide27(n, hs, {}, {}) IN ~Replicates(d) /\ d.del = "none"
-NoTasks(hs) == \A n \in hs : ~Replicates(Decide27(n, hs, {}, {}))
-s\* a check "replicates" when it hands the replicator a task with at least one candidate node. (With overlapping
-\* rules the code as found keeps calling the replicator with an EMPTY candidate list: a holder remembered from
-\* an earlier rule does not lower the shortage of a later rule - a phantom shortage that copies nothing.)
-Replicates(d) == \E k \in 1..Len(d.tasks) : Len(d.tasks[k].nodes) > 0
-Quiet(hs) == \A n \in hs : LET d == Decide27(n, hs, {}, {}) IN ~Replicates(d) /\ d.del = "none"
-NoTasks(hs) == \A n \in hs : ~Replicates(Decide27(n, hs, {}, {}))
- \* a check "replicates" when it hands the replicator a task with at least one candidate node. (With overlapping
-\* rules the code as found keeps calling the replicator with an EMPTY candidate list: a holder remembered from
-\* an earlier rule does not lower the shortage of a later rule - a phantom shortage that copies nothing.)
-Replicates(d) == \E k \in 1..Len(d.tasks) : Len(d.tasks[k].nodes) > 0
-Quiet(hs) == \A n \in hs : LET d == Decide27(n, hs, {}, {}) IN ~Replicates(d) /\ d.del = "none"
-NoTasks(hs) == \A n \in hs : ~Replicates(Decide27(n, hs, {}, {}))
-c\* a check "replicates" when it hands the replicator a task with at least one candidate node. (With overlapping
-\* rules the code as found keeps calling the replicator with an EMPTY candidate list: a holder remembered from
-\* an earlier rule does not lower the shortage of a later rule - a phantom shortage that copies nothing.)
-Replicates(d) == \E k \in 1..Len(d.tasks) : Len(d.tasks[k].nodes) > 0
-Quiet(hs) == \A n \in hs : LET d == Decide27(n, hs, {}, {}) IN ~Replicates(d) /\ d.del = "none"
-NoTasks(hs) == \A n \in hs : ~Replicates(Decide27(n, hs, {}, {}))
-h\* a check "replicates" when it hands the replicator a task with at least one candidate node. (With overlapping
-\* rules the code as found keeps calling the replicator with an EMPTY candidate list: a holder remembered from
-\* an earlier rule does not lower the shortage of a later rule - a phantom shortage that copies nothing.)
-Replicates(d) == \E k \in 1..Len(d.tasks) : Len(d.tasks[k].nodes) > 0
-Quiet(hs) == \A n \in hs : LET d == Decide27(n, hs, {}, {}) IN ~Replicates(d) /\ d.del = "none"
-NoTasks(hs) == \A n \in hs : ~Replicates(Decide27(n, hs, {}, {}))
-e\* a check "replicates" when it hands the replicator a task with at least one candidate node. (With overlapping
-\* rules the code as found keeps calling the replicator with an EMPTY candidate list: a holder remembered from
-\* an earlier rule does not lower the shortage of a later rule - a phantom shortage that copies nothing.)
-Replicates(d) == \E k \in 1..Len(d.tasks) : Len(d.tasks[k].nodes) > 0
-Quiet(hs) == \A n \in hs : LET d == Decide27(n, hs, {}, {}) IN ~Replicates(d) /\ d.del = "none"
-NoTasks(hs) == \A n \in hs : ~Replicates(Decide27(n, hs, {}, {}))
-c\* a check "replicates" when it hands the replicator a task with at least one candidate node. (With overlapping
-\* rules the code as found keeps calling the replicator with an EMPTY candidate list: a holder remembered from
-\* an earlier rule does not lower the shortage of a later rule - a phantom shortage that copies nothing.)
-Replicates(d) == \E k \in 1..Len(d.tasks) : Len(d.tasks[k].nodes) > 0
-Quiet(hs) == \A n \in hs : LET d == Decide27(n, hs, {}, {}) IN ~Replicates(d) /\ d.del = "none"
-NoTasks(hs) == \A n \in hs : ~Replicates(Decide27(n, hs, {}, {}))
-k\* a check "replicates" when it hands the replicator a task with at least one candidate node. (With overlapping
-\* rules the code as found keeps calling the replicator with an EMPTY candidate list: a holder remembered from
-\* an earlier rule does not lower the shortage of a later rule - a phantom shortage that copies nothing.)
-Replicates(d) == \E k \in 1..Len(d.tasks) : Len(d.tasks[k].nodes) > 0
-Quiet(hs) == \A n \in hs : LET d == Decide27(n, hs, {}, {}) IN ~Replicates(d) /\ d.del = "none"
-NoTasks(hs) == \A n \in hs : ~Replicates(Decide27(n, hs, {}, {}))
- \* a check "replicates" when it hands the replicator a task with at least one candidate node. (With overlapping
-\* rules the code as found keeps calling the replicator with an EMPTY candidate list: a holder remembered from
-\* an earlier rule does not lower the shortage of a later rule - a phantom shortage that copies nothing.)
-Replicates(d) == \E k \in 1..Len(d.tasks) : Len(d.tasks[k].nodes) > 0
-Quiet(hs) == \A n \in hs : LET d == Decide27(n, hs, {}, {}) IN ~Replicates(d) /\ d.del = "none"
-NoTasks(hs) == \A n \in hs : ~Replicates(Decide27(n, hs, {}, {}))
-i\* a check "replicates" when it hands the replicator a task with at least one candidate node. (With overlapping
-\* rules the code as found keeps calling the replicator with an EMPTY candidate list: a holder remembered from
-\* an earlier rule does not lower the shortage of a later rule - a phantom shortage that copies nothing.)
-Replicates(d) == \E k \in 1..Len(d.tasks) : Len(d.tasks[k].nodes) > 0
-Quiet(hs) == \A n \in hs : LET d == Decide27(n, hs, {}, {}) IN ~Replicates(d) /\ d.del = "none"
-NoTasks(hs) == \A n \in hs : ~Replicates(Decide27(n, hs, {}, {}))
-n\* a check "replicates" when it hands the replicator a task with at least one candidate node. (With overlapping
-\* rules the code as found keeps calling the replicator with an EMPTY candidate list: a holder remembered from
-\* an earlier rule does not lower the shortage of a later rule - a phantom shortage that copies nothing.)
-Replicates(d) == \E k \in 1..Len(d.tasks) : Len(d.tasks[k].nodes) > 0
-Quiet(hs) == \A n \in hs : LET d == Decide27(n, hs, {}, {}) IN ~Replicates(d) /\ d.del = "none"
-NoTasks(hs) == \A n \in hs : ~Replicates(Decide27(n, hs, {}, {}))
- \* a check "replicates" when it hands the replicator a task with at least one candidate node. (With overlapping
-\* rules the code as found keeps calling the replicator with an EMPTY candidate list: a holder remembered from
-\* an earlier rule does not lower the shortage of a later rule - a phantom shortage that copies nothing.)
-Replicates(d) == \E k \in 1..Len(d.tasks) : Len(d.tasks[k].nodes) > 0
-Quiet(hs) == \A n \in hs : LET d == Decide27(n, hs, {}, {}) IN ~Replicates(d) /\ d.del = "none"
-NoTasks(hs) == \A n \in hs : ~Replicates(Decide27(n, hs, {}, {}))
-r\* a check "replicates" when it hands the replicator a task with at least one candidate node. (With overlapping
-\* rules the code as found keeps calling the replicator with an EMPTY candidate list: a holder remembered from
-\* an earlier rule does not lower the shortage of a later rule - a phantom shortage that copies nothing.)
-Replicates(d) == \E k \in 1..Len(d.tasks) : Len(d.tasks[k].nodes) > 0
-Quiet(hs) == \A n \in hs : LET d == Decide27(n, hs, {}, {}) IN ~Replicates(d) /\ d.del = "none"
-NoTasks(hs) == \A n \in hs : ~Replicates(Decide27(n, hs, {}, {}))
-o\* a check "replicates" when it hands the replicator a task with at least one candidate node. (With overlapping
-\* rules the code as found keeps calling the replicator with an EMPTY candidate list: a holder remembered from
-\* an earlier rule does not lower the shortage of a later rule - a phantom shortage that copies nothing.)
-Replicates(d) == \E k \in 1..Len(d.tasks) : Len(d.tasks[k].nodes) > 0
-Quiet(hs) == \A n \in hs : LET d == Decide27(n, hs, {}, {}) IN ~Replicates(d) /\ d.del = "none"
-NoTasks(hs) == \A n \in hs : ~Replicates(Decide27(n, hs, {}, {}))
-u\* a check "replicates" when it hands the replicator a task with at least one candidate node. (With overlapping
-\* rules the code as found keeps calling the replicator with an EMPTY candidate list: a holder remembered from
-\* an earlier rule does not lower the shortage of a later rule - a phantom shortage that copies nothing.)
-Replicates(d) == \E k \in 1..Len(d.tasks) : Len(d.tasks[k].nodes) > 0
-Quiet(hs) == \A n \in hs : LET d == Decide27(n, hs, {}, {}) IN ~Replicates(d) /\ d.del = "none"
-NoTasks(hs) == \A n \in hs : ~Replicates(Decide27(n, hs, {}, {}))
-n\* a check "replicates" when it hands the replicator a task with at least one candidate node. (With overlapping
-\* rules the code as found keeps calling the replicator with an EMPTY candidate list: a holder remembered from
-\* an earlier rule does not lower the shortage of a later rule - a phantom shortage that copies nothing.)
-Replicates(d) == \E k \in 1..Len(d.tasks) : Len(d.tasks[k].nodes) > 0
-Quiet(hs) == \A n \in hs : LET d == Decide27(n, hs, {}, {}) IN ~Replicates(d) /\ d.del = "none"
-NoTasks(hs) == \A n \in hs : ~Replicates(Decide27(n, hs, {}, {}))
-d\* a check "replicates" when it hands the replicator a task with at least one candidate node. (With overlapping
-\* rules the code as found keeps calling the replicator with an EMPTY candidate list: a holder remembered from
-\* an earlier rule does not lower the shortage of a later rule - a phantom shortage that copies nothing.)
-Replicates(d) == \E k \in 1..Len(d.tasks) : Len(d.tasks[k].nodes) > 0
-Quiet(hs) == \A n \in hs : LET d == Decide27(n, hs, {}, {}) IN ~Replicates(d) /\ d.del = "none"
-NoTasks(hs) == \A n \in hs : ~Replicates(Decide27(n, hs, {}, {}))
-s\* a check "replicates" when it hands the replicator a task with at least one candidate node. (With overlapping
-\* rules the code as found keeps calling the replicator with an EMPTY candidate list: a holder remembered from
-\* an earlier rule does not lower the shortage of a later rule - a phantom shortage that copies nothing.)
-Replicates(d) == \E k \in 1..Len(d.tasks) : Len(d.tasks[k].nodes) > 0
-Quiet(hs) == \A n \in hs : LET d == Decide27(n, hs, {}, {}) IN ~Replicates(d) /\ d.del = "none"
-NoTasks(hs) == \A n \in hs : ~Replicates(Decide27(n, hs, {}, {}))
- \* a check "replicates" when it hands the replicator a task with at least one candidate node. (With overlapping
-\* rules the code as found keeps calling the replicator with an EMPTY candidate list: a holder remembered from
-\* an earlier rule does not lower the shortage of a later rule - a phantom shortage that copies nothing.)
-Replicates(d) == \E k \in 1..Len(d.tasks) : Len(d.tasks[k].nodes) > 0
-Quiet(hs) == \A n \in hs : LET d == Decide27(n, hs, {}, {}) IN ~Replicates(d) /\ d.del = "none"
-NoTasks(hs) == \A n \in hs : ~Replicates(Decide27(n, hs, {}, {}))
-(\* a check "replicates" when it hands the replicator a task with at least one candidate node. (With overlapping
-\* rules the code as found keeps calling the replicator with an EMPTY candidate list: a holder remembered from
-\* an earlier rule does not lower the shortage of a later rule - a phantom shortage that copies nothing.)
-Replicates(d) == \E k \in 1..Len(d.tasks) : Len(d.tasks[k].nodes) > 0
-Quiet(hs) == \A n \in hs : LET d == Decide27(n, hs, {}, {}) IN ~Replicates(d) /\ d.del = "none"
-NoTasks(hs) == \A n \in hs : ~Replicates(Decide27(n, hs, {}, {}))
-e\* a check "replicates" when it hands the replicator a task with at least one candidate node. (With overlapping
-\* rules the code as found keeps calling the replicator with an EMPTY candidate list: a holder remembered from
-\* an earlier rule does not lower the shortage of a later rule - a phantom shortage that copies nothing.)
-Replicates(d) == \E k \in 1..Len(d.tasks) : Len(d.tasks[k].nodes) > 0
-Quiet(hs) == \A n \in hs : LET d == Decide27(n, hs, {}, {}) IN ~Replicates(d) /\ d.del = "none"
-NoTasks(hs) == \A n \in hs : ~Replicates(Decide27(n, hs, {}, {}))
-v\* a check "replicates" when it hands the replicator a task with at least one candidate node. (With overlapping
-\* rules the code as found keeps calling the replicator with an EMPTY candidate list: a holder remembered from
-\* an earlier rule does not lower the shortage of a later rule - a phantom shortage that copies nothing.)
-Replicates(d) == \E k \in 1..Len(d.tasks) : Len(d.tasks[k].nodes) > 0
-Quiet(hs) == \A n \in hs : LET d == Decide27(n, hs, {}, {}) IN ~Replicates(d) /\ d.del = "none"
-NoTasks(hs) == \A n \in hs : ~Replicates(Decide27(n, hs, {}, {}))
-e\* a check "replicates" when it hands the replicator a task with at least one candidate node. (With overlapping
-\* rules the code as found keeps calling the replicator with an EMPTY candidate list: a holder remembered from
-\* an earlier rule does not lower the shortage of a later rule - a phantom shortage that copies nothing.)
-Replicates(d) == \E k \in 1..Len(d.tasks) : Len(d.tasks[k].nodes) > 0
-Quiet(hs) == \A n \in hs : LET d == Decide27(n, hs, {}, {}) IN ~Replicates(d) /\ d.del = "none"
-NoTasks(hs) == \A n \in hs : ~Replicates(Decide27(n, hs, {}, {}))
-r\* a check "replicates" when it hands the replicator a task with at least one candidate node. (With overlapping
-\* rules the code as found keeps calling the replicator with an EMPTY candidate list: a holder remembered from
-\* an earlier rule does not lower the shortage of a later rule - a phantom shortage that copies nothing.)
-Replicates(d) == \E k \in 1..Len(d.tasks) : Len(d.tasks[k].nodes) > 0
-Quiet(hs) == \A n \in hs : LET d == Decide27(n, hs, {}, {}) IN ~Replicates(d) /\ d.del = "none"
-NoTasks(hs) == \A n \in hs : ~Replicates(Decide27(n, hs, {}, {}))
-y\* a check "replicates" when it hands the replicator a task with at least one candidate node. (With overlapping
-\* rules the code as found keeps calling the replicator with an EMPTY candidate list: a holder remembered from
-\* an earlier rule does not lower the shortage of a later rule - a phantom shortage that copies nothing.)
-Replicates(d) == \E k \in 1..Len(d.tasks) : Len(d.tasks[k].nodes) > 0
-Quiet(hs) == \A n \in hs : LET d == Decide27(n, hs, {}, {}) IN ~Replicates(d) /\ d.del = "none"
-NoTasks(hs) == \A n \in hs : ~Replicates(Decide27(n, hs, {}, {}))
- \* a check "replicates" when it hands the replicator a task with at least one candidate node. (With overlapping
-\* rules the code as found keeps calling the replicator with an EMPTY candidate list: a holder remembered from
-\* an earlier rule does not lower the shortage of a later rule - a phantom shortage that copies nothing.)
-Replicates(d) == \E k \in 1..Len(d.tasks) : Len(d.tasks[k].nodes) > 0
-Quiet(hs) == \A n \in hs : LET d == Decide27(n, hs, {}, {}) IN ~Replicates(d) /\ d.del = "none"
-NoTasks(hs) == \A n \in hs : ~Replicates(Decide27(n, hs, {}, {}))
-h\* a check "replicates" when it hands the replicator a task with at least one candidate node. (With overlapping
-\* rules the code as found keeps calling the replicator with an EMPTY candidate list: a holder remembered from
-\* an earlier rule does not lower the shortage of a later rule - a phantom shortage that copies nothing.)
-Replicates(d) == \E k \in 1..Len(d.tasks) : Len(d.tasks[k].nodes) > 0
-Quiet(hs) == \A n \in hs : LET d == Decide27(n, hs, {}, {}) IN ~Replicates(d) /\ d.del = "none"
-NoTasks(hs) == \A n \in hs : ~Replicates(Decide27(n, hs, {}, {}))
-o\* a check "replicates" when it hands the replicator a task with at least one candidate node. (With overlapping
-\* rules the code as found keeps calling the replicator with an EMPTY candidate list: a holder remembered from
-\* an earlier rule does not lower the shortage of a later rule - a phantom shortage that copies nothing.)
-Replicates(d) == \E k \in 1..Len(d.tasks) : Len(d.tasks[k].nodes) > 0
-Quiet(hs) == \A n \in hs : LET d == Decide27(n, hs, {}, {}) IN ~Replicates(d) /\ d.del = "none"
-NoTasks(hs) == \A n \in hs : ~Replicates(Decide27(n, hs, {}, {}))
-l\* a check "replicates" when it hands the replicator a task with at least one candidate node. (With overlapping
-\* rules the code as found keeps calling the replicator with an EMPTY candidate list: a holder remembered from
-\* an earlier rule does not lower the shortage of a later rule - a phantom shortage that copies nothing.)
-Replicates(d) == \E k \in 1..Len(d.tasks) : Len(d.tasks[k].nodes) > 0
-Quiet(hs) == \A n \in hs : LET d == Decide27(n, hs, {}, {}) IN ~Replicates(d) /\ d.del = "none"
-NoTasks(hs) == \A n \in hs : ~Replicates(Decide27(n, hs, {}, {}))
-d\* a check "replicates" when it hands the replicator a task with at least one candidate node. (With overlapping
-\* rules the code as found keeps calling the replicator with an EMPTY candidate list: a holder remembered from
-\* an earlier rule does not lower the shortage of a later rule - a phantom shortage that copies nothing.)
-Replicates(d) == \E k \in 1..Len(d.tasks) : Len(d.tasks[k].nodes) > 0
-Quiet(hs) == \A n \in hs : LET d == Decide27(n, hs, {}, {}) IN ~Replicates(d) /\ d.del = "none"
-NoTasks(hs) == \A n \in hs : ~Replicates(Decide27(n, hs, {}, {}))
-e\* a check "replicates" when it hands the replicator a task with at least one candidate node. (With overlapping
-\* rules the code as found keeps calling the replicator with an EMPTY candidate list: a holder remembered from
-\* an earlier rule does not lower the shortage of a later rule - a phantom shortage that copies nothing.)
-Replicates(d) == \E k \in 1..Len(d.tasks) : Len(d.tasks[k].nodes) > 0
-Quiet(hs) == \A n \in hs : LET d == Decide27(n, hs, {}, {}) IN ~Replicates(d) /\ d.del = "none"
-NoTasks(hs) == \A n \in hs : ~Replicates(Decide27(n, hs, {}, {}))
-r\* a check "replicates" when it hands the replicator a task with at least one candidate node. (With overlapping
-\* rules the code as found keeps calling the replicator with an EMPTY candidate list: a holder remembered from
-\* an earlier rule does not lower the shortage of a later rule - a phantom shortage that copies nothing.)
-Replicates(d) == \E k \in 1..Len(d.tasks) : Len(d.tasks[k].nodes) > 0
-Quiet(hs) == \A n \in hs : LET d == Decide27(n, hs, {}, {}) IN ~Replicates(d) /\ d.del = "none"
-NoTasks(hs) == \A n \in hs : ~Replicates(Decide27(n, hs, {}, {}))
- \* a check "replicates" when it hands the replicator a task with at least one candidate node. (With overlapping
-\* rules the code as found keeps calling the replicator with an EMPTY candidate list: a holder remembered from
-\* an earlier rule does not lower the shortage of a later rule - a phantom shortage that copies nothing.)
-Replicates(d) == \E k \in 1..Len(d.tasks) : Len(d.tasks[k].nodes) > 0
-Quiet(hs) == \A n \in hs : LET d == Decide27(n, hs, {}, {}) IN ~Replicates(d) /\ d.del = "none"
-NoTasks(hs) == \A n \in hs : ~Replicates(Decide27(n, hs, {}, {}))
-o\* a check "replicates" when it hands the replicator a task with at least one candidate node. (With overlapping
-\* rules the code as found keeps calling the replicator with an EMPTY candidate list: a holder remembered from
-\* an earlier rule does not lower the shortage of a later rule - a phantom shortage that copies nothing.)
-Replicates(d) == \E k \in 1..Len(d.tasks) : Len(d.tasks[k].nodes) > 0
-Quiet(hs) == \A n \in hs : LET d == Decide27(n, hs, {}, {}) IN ~Replicates(d) /\ d.del = "none"
-NoTasks(hs) == \A n \in hs : ~Replicates(Decide27(n, hs, {}, {}))
-n\* a check "replicates" when it hands the replicator a task with at least one candidate node. (With overlapping
-\* rules the code as found keeps calling the replicator with an EMPTY candidate list: a holder remembered from
-\* an earlier rule does not lower the shortage of a later rule - a phantom shortage that copies nothing.)
-Replicates(d) == \E k \in 1..Len(d.tasks) : Len(d.tasks[k].nodes) > 0
-Quiet(hs) == \A n \in hs : LET d == Decide27(n, hs, {}, {}) IN ~Replicates(d) /\ d.del = "none"
-NoTasks(hs) == \A n \in hs : ~Replicates(Decide27(n, hs, {}, {}))
-c\* a check "replicates" when it hands the replicator a task with at least one candidate node. (With overlapping
-\* rules the code as found keeps calling the replicator with an EMPTY candidate list: a holder remembered from
-\* an earlier rule does not lower the shortage of a later rule - a phantom shortage that copies nothing.)
-Replicates(d) == \E k \in 1..Len(d.tasks) : Len(d.tasks[k].nodes) > 0
-Quiet(hs) == \A n \in hs : LET d == Decide27(n, hs, {}, {}) IN ~Replicates(d) /\ d.del = "none"
-NoTasks(hs) == \A n \in hs : ~Replicates(Decide27(n, hs, {}, {}))
-e\* a check "replicates" when it hands the replicator a task with at least one candidate node. (With overlapping
-\* rules the code as found keeps calling the replicator with an EMPTY candidate list: a holder remembered from
-\* an earlier rule does not lower the shortage of a later rule - a phantom shortage that copies nothing.)
-Replicates(d) == \E k \in 1..Len(d.tasks) : Len(d.tasks[k].nodes) > 0
-Quiet(hs) == \A n \in hs : LET d == Decide27(n, hs, {}, {}) IN ~Replicates(d) /\ d.del = "none"
-NoTasks(hs) == \A n \in hs : ~Replicates(Decide27(n, hs, {}, {}))
- \* a check "replicates" when it hands the replicator a task with at least one candidate node. (With overlapping
-\* rules the code as found keeps calling the replicator with an EMPTY candidate list: a holder remembered from
-\* an earlier rule does not lower the shortage of a later rule - a phantom shortage that copies nothing.)
-Replicates(d) == \E k \in 1..Len(d.tasks) : Len(d.tasks[k].nodes) > 0
-Quiet(hs) == \A n \in hs : LET d == Decide27(n, hs, {}, {}) IN ~Replicates(d) /\ d.del = "none"
-NoTasks(hs) == \A n \in hs : ~Replicates(Decide27(n, hs, {}, {}))
-p\* a check "replicates" when it hands the replicator a task with at least one candidate node. (With overlapping
-\* rules the code as found keeps calling the replicator with an EMPTY candidate list: a holder remembered from
-\* an earlier rule does not lower the shortage of a later rule - a phantom shortage that copies nothing.)
-Replicates(d) == \E k \in 1..Len(d.tasks) : Len(d.tasks[k].nodes) > 0
-Quiet(hs) == \A n \in hs : LET d == Decide27(n, hs, {}, {}) IN ~Replicates(d) /\ d.del = "none"
-NoTasks(hs) == \A n \in hs : ~Replicates(Decide27(n, hs, {}, {}))
-e\* a check "replicates" when it hands the replicator a task with at least one candidate node. (With overlapping
-\* rules the code as found keeps calling the replicator with an EMPTY candidate list: a holder remembered from
-\* an earlier rule does not lower the shortage of a later rule - a phantom shortage that copies nothing.)
-Replicates(d) == \E k \in 1..Len(d.tasks) : Len(d.tasks[k].nodes) > 0
-Quiet(hs) == \A n \in hs : LET d == Decide27(n, hs, {}, {}) IN ~Replicates(d) /\ d.del = "none"
-NoTasks(hs) == \A n \in hs : ~Replicates(Decide27(n, hs, {}, {}))
-r\* a check "replicates" when it hands the replicator a task with at least one candidate node. (With overlapping
-\* rules the code as found keeps calling the replicator with an EMPTY candidate list: a holder remembered from
-\* an earlier rule does not lower the shortage of a later rule - a phantom shortage that copies nothing.)
-Replicates(d) == \E k \in 1..Len(d.tasks) : Len(d.tasks[k].nodes) > 0
-Quiet(hs) == \A n \in hs : LET d == Decide27(n, hs, {}, {}) IN ~Replicates(d) /\ d.del = "none"
-NoTasks(hs) == \A n \in hs : ~Replicates(Decide27(n, hs, {}, {}))
- \* a check "replicates" when it hands the replicator a task with at least one candidate node. (With overlapping
-\* rules the code as found keeps calling the replicator with an EMPTY candidate list: a holder remembered from
-\* an earlier rule does not lower the shortage of a later rule - a phantom shortage that copies nothing.)
-Replicates(d) == \E k \in 1..Len(d.tasks) : Len(d.tasks[k].nodes) > 0
-Quiet(hs) == \A n \in hs : LET d == Decide27(n, hs, {}, {}) IN ~Replicates(d) /\ d.del = "none"
-NoTasks(hs) == \A n \in hs : ~Replicates(Decide27(n, hs, {}, {}))
-r\* a check "replicates" when it hands the replicator a task with at least one candidate node. (With overlapping
-\* rules the code as found keeps calling the replicator with an EMPTY candidate list: a holder remembered from
-\* an earlier rule does not lower the shortage of a later rule - a phantom shortage that copies nothing.)
-Replicates(d) == \E k \in 1..Len(d.tasks) : Len(d.tasks[k].nodes) > 0
-Quiet(hs) == \A n \in hs : LET d == Decide27(n, hs, {}, {}) IN ~Replicates(d) /\ d.del = "none"
-NoTasks(hs) == \A n \in hs : ~Replicates(Decide27(n, hs, {}, {}))
-o\* a check "replicates" when it hands the replicator a task with at least one candidate node. (With overlapping
-\* rules the code as found keeps calling the replicator with an EMPTY candidate list: a holder remembered from
-\* an earlier rule does not lower the shortage of a later rule - a phantom shortage that copies nothing.)
-Replicates(d) == \E k \in 1..Len(d.tasks) : Len(d.tasks[k].nodes) > 0
-Quiet(hs) == \A n \in hs : LET d == Decide27(n, hs, {}, {}) IN ~Replicates(d) /\ d.del = "none"
-NoTasks(hs) == \A n \in hs : ~Replicates(Decide27(n, hs, {}, {}))
-u\* a check "replicates" when it hands the replicator a task with at least one candidate node. (With overlapping
-\* rules the code as found keeps calling the replicator with an EMPTY candidate list: a holder remembered from
-\* an earlier rule does not lower the shortage of a later rule - a phantom shortage that copies nothing.)
-Replicates(d) == \E k \in 1..Len(d.tasks) : Len(d.tasks[k].nodes) > 0
-Quiet(hs) == \A n \in hs : LET d == Decide27(n, hs, {}, {}) IN ~Replicates(d) /\ d.del = "none"
-NoTasks(hs) == \A n \in hs : ~Replicates(Decide27(n, hs, {}, {}))
-n\* a check "replicates" when it hands the replicator a task with at least one candidate node. (With overlapping
-\* rules the code as found keeps calling the replicator with an EMPTY candidate list: a holder remembered from
-\* an earlier rule does not lower the shortage of a later rule - a phantom shortage that copies nothing.)
-Replicates(d) == \E k \in 1..Len(d.tasks) : Len(d.tasks[k].nodes) > 0
-Quiet(hs) == \A n \in hs : LET d == Decide27(n, hs, {}, {}) IN ~Replicates(d) /\ d.del = "none"
-NoTasks(hs) == \A n \in hs : ~Replicates(Decide27(n, hs, {}, {}))
-d\* a check "replicates" when it hands the replicator a task with at least one candidate node. (With overlapping
-\* rules the code as found keeps calling the replicator with an EMPTY candidate list: a holder remembered from
-\* an earlier rule does not lower the shortage of a later rule - a phantom shortage that copies nothing.)
-Replicates(d) == \E k \in 1..Len(d.tasks) : Len(d.tasks[k].nodes) > 0
-Quiet(hs) == \A n \in hs : LET d == Decide27(n, hs, {}, {}) IN ~Replicates(d) /\ d.del = "none"
-NoTasks(hs) == \A n \in hs : ~Replicates(Decide27(n, hs, {}, {}))
-,\* a check "replicates" when it hands the replicator a task with at least one candidate node. (With overlapping
-\* rules the code as found keeps calling the replicator with an EMPTY candidate list: a holder remembered from
-\* an earlier rule does not lower the shortage of a later rule - a phantom shortage that copies nothing.)
-Replicates(d) == \E k \in 1..Len(d.tasks) : Len(d.tasks[k].nodes) > 0
-Quiet(hs) == \A n \in hs : LET d == Decide27(n, hs, {}, {}) IN ~Replicates(d) /\ d.del = "none"
-NoTasks(hs) == \A n \in hs : ~Replicates(Decide27(n, hs, {}, {}))
- \* a check "replicates" when it hands the replicator a task with at least one candidate node. (With overlapping
-\* rules the code as found keeps calling the replicator with an EMPTY candidate list: a holder remembered from
-\* an earlier rule does not lower the shortage of a later rule - a phantom shortage that copies nothing.)
-Replicates(d) == \E k \in 1..Len(d.tasks) : Len(d.tasks[k].nodes) > 0
-Quiet(hs) == \A n \in hs : LET d == Decide27(n, hs, {}, {}) IN ~Replicates(d) /\ d.del = "none"
-NoTasks(hs) == \A n \in hs : ~Replicates(Decide27(n, hs, {}, {}))
-a\* a check "replicates" when it hands the replicator a task with at least one candidate node. (With overlapping
-\* rules the code as found keeps calling the replicator with an EMPTY candidate list: a holder remembered from
-\* an earlier rule does not lower the shortage of a later rule - a phantom shortage that copies nothing.)
-Replicates(d) == \E k \in 1..Len(d.tasks) : Len(d.tasks[k].nodes) > 0
-Quiet(hs) == \A n \in hs : LET d == Decide27(n, hs, {}, {}) IN ~Replicates(d) /\ d.del = "none"
-NoTasks(hs) == \A n \in hs : ~Replicates(Decide27(n, hs, {}, {}))
-n\* a check "replicates" when it hands the replicator a task with at least one candidate node. (With overlapping
-\* rules the code as found keeps calling the replicator with an EMPTY candidate list: a holder remembered from
-\* an earlier rule does not lower the shortage of a later rule - a phantom shortage that copies nothing.)
-Replicates(d) == \E k \in 1..Len(d.tasks) : Len(d.tasks[k].nodes) > 0
-Quiet(hs) == \A n \in hs : LET d == Decide27(n, hs, {}, {}) IN ~Replicates(d) /\ d.del = "none"
-NoTasks(hs) == \A n \in hs : ~Replicates(Decide27(n, hs, {}, {}))
-y\* a check "replicates" when it hands the replicator a task with at least one candidate node. (With overlapping
-\* rules the code as found keeps calling the replicator with an EMPTY candidate list: a holder remembered from
-\* an earlier rule does not lower the shortage of a later rule - a phantom shortage that copies nothing.)
-Replicates(d) == \E k \in 1..Len(d.tasks) : Len(d.tasks[k].nodes) > 0
-Quiet(hs) == \A n \in hs : LET d == Decide27(n, hs, {}, {}) IN ~Replicates(d) /\ d.del = "none"
-NoTasks(hs) == \A n \in hs : ~Replicates(Decide27(n, hs, {}, {}))
- \* a check "replicates" when it hands the replicator a task with at least one candidate node. (With overlapping
-\* rules the code as found keeps calling the replicator with an EMPTY candidate list: a holder remembered from
-\* an earlier rule does not lower the shortage of a later rule - a phantom shortage that copies nothing.)
-Replicates(d) == \E k \in 1..Len(d.tasks) : Len(d.tasks[k].nodes) > 0
-Quiet(hs) == \A n \in hs : LET d == Decide27(n, hs, {}, {}) IN ~Replicates(d) /\ d.del = "none"
-NoTasks(hs) == \A n \in hs : ~Replicates(Decide27(n, hs, {}, {}))
-o\* a check "replicates" when it hands the replicator a task with at least one candidate node. (With overlapping
-\* rules the code as found keeps calling the replicator with an EMPTY candidate list: a holder remembered from
-\* an earlier rule does not lower the shortage of a later rule - a phantom shortage that copies nothing.)
-Replicates(d) == \E k \in 1..Len(d.tasks) : Len(d.tasks[k].nodes) > 0
-Quiet(hs) == \A n \in hs : LET d == Decide27(n, hs, {}, {}) IN ~Replicates(d) /\ d.del = "none"
-NoTasks(hs) == \A n \in hs : ~Replicates(Decide27(n, hs, {}, {}))
-r\* a check "replicates" when it hands the replicator a task with at least one candidate node. (With overlapping
-\* rules the code as found keeps calling the replicator with an EMPTY candidate list: a holder remembered from
-\* an earlier rule does not lower the shortage of a later rule - a phantom shortage that copies nothing.)
-Replicates(d) == \E k \in 1..Len(d.tasks) : Len(d.tasks[k].nodes) > 0
-Quiet(hs) == \A n \in hs : LET d == Decide27(n, hs, {}, {}) IN ~Replicates(d) /\ d.del = "none"
-NoTasks(hs) == \A n \in hs : ~Replicates(Decide27(n, hs, {}, {}))
-d\* a check "replicates" when it hands the replicator a task with at least one candidate node. (With overlapping
-\* rules the code as found keeps calling the replicator with an EMPTY candidate list: a holder remembered from
-\* an earlier rule does not lower the shortage of a later rule - a phantom shortage that copies nothing.)
-Replicates(d) == \E k \in 1..Len(d.tasks) : Len(d.tasks[k].nodes) > 0
-Quiet(hs) == \A n \in hs : LET d == Decide27(n, hs, {}, {}) IN ~Replicates(d) /\ d.del = "none"
-NoTasks(hs) == \A n \in hs : ~Replicates(Decide27(n, hs, {}, {}))
-e\* a check "replicates" when it hands the replicator a task with at least one candidate node. (With overlapping
-\* rules the code as found keeps calling the replicator with an EMPTY candidate list: a holder remembered from
-\* an earlier rule does not lower the shortage of a later rule - a phantom shortage that copies nothing.)
-Replicates(d) == \E k \in 1..Len(d.tasks) : Len(d.tasks[k].nodes) > 0
-Quiet(hs) == \A n \in hs : LET d == Decide27(n, hs, {}, {}) IN ~Replicates(d) /\ d.del = "none"
-NoTasks(hs) == \A n \in hs : ~Replicates(Decide27(n, hs, {}, {}))
-r\* a check "replicates" when it hands the replicator a task with at least one candidate node. (With overlapping
-\* rules the code as found keeps calling the replicator with an EMPTY candidate list: a holder remembered from
-\* an earlier rule does not lower the shortage of a later rule - a phantom shortage that copies nothing.)
-Replicates(d) == \E k \in 1..Len(d.tasks) : Len(d.tasks[k].nodes) > 0
-Quiet(hs) == \A n \in hs : LET d == Decide27(n, hs, {}, {}) IN ~Replicates(d) /\ d.del = "none"
-NoTasks(hs) == \A n \in hs : ~Replicates(Decide27(n, hs, {}, {}))
-)\* a check "replicates" when it hands the replicator a task with at least one candidate node. (With overlapping
-\* rules the code as found keeps calling the replicator with an EMPTY candidate list: a holder remembered from
-\* an earlier rule does not lower the shortage of a later rule - a phantom shortage that copies nothing.)
-Replicates(d) == \E k \in 1..Len(d.tasks) : Len(d.tasks[k].nodes) > 0
-Quiet(hs) == \A n \in hs : LET d == Decide27(n, hs, {}, {}) IN ~Replicates(d) /\ d.del = "none"
-NoTasks(hs) == \A n \in hs : ~Replicates(Decide27(n, hs, {}, {}))
-;\* a check "replicates" when it hands the replicator a task with at least one candidate node. (With overlapping
-\* rules the code as found keeps calling the replicator with an EMPTY candidate list: a holder remembered from
-\* an earlier rule does not lower the shortage of a later rule - a phantom shortage that copies nothing.)
-Replicates(d) == \E k \in 1..Len(d.tasks) : Len(d.tasks[k].nodes) > 0
-Quiet(hs) == \A n \in hs : LET d == Decide27(n, hs, {}, {}) IN ~Replicates(d) /\ d.del = "none"
-NoTasks(hs) == \A n \in hs : ~Replicates(Decide27(n, hs, {}, {}))
- \* a check "replicates" when it hands the replicator a task with at least one candidate node. (With overlapping
-\* rules the code as found keeps calling the replicator with an EMPTY candidate list: a holder remembered from
-\* an earlier rule does not lower the shortage of a later rule - a phantom shortage that copies nothing.)
-Replicates(d) == \E k \in 1..Len(d.tasks) : Len(d.tasks[k].nodes) > 0
-Quiet(hs) == \A n \in hs : LET d == Decide27(n, hs, {}, {}) IN ~Replicates(d) /\ d.del = "none"
-NoTasks(hs) == \A n \in hs : ~Replicates(Decide27(n, hs, {}, {}))
-a\* a check "replicates" when it hands the replicator a task with at least one candidate node. (With overlapping
-\* rules the code as found keeps calling the replicator with an EMPTY candidate list: a holder remembered from
-\* an earlier rule does not lower the shortage of a later rule - a phantom shortage that copies nothing.)
-Replicates(d) == \E k \in 1..Len(d.tasks) : Len(d.tasks[k].nodes) > 0
-Quiet(hs) == \A n \in hs : LET d == Decide27(n, hs, {}, {}) IN ~Replicates(d) /\ d.del = "none"
-NoTasks(hs) == \A n \in hs : ~Replicates(Decide27(n, hs, {}, {}))
-f\* a check "replicates" when it hands the replicator a task with at least one candidate node. (With overlapping
-\* rules the code as found keeps calling the replicator with an EMPTY candidate list: a holder remembered from
-\* an earlier rule does not lower the shortage of a later rule - a phantom shortage that copies nothing.)
-Replicates(d) == \E k \in 1..Len(d.tasks) : Len(d.tasks[k].nodes) > 0
-Quiet(hs) == \A n \in hs : LET d == Decide27(n, hs, {}, {}) IN ~Replicates(d) /\ d.del = "none"
-NoTasks(hs) == \A n \in hs : ~Replicates(Decide27(n, hs, {}, {}))
-t\* a check "replicates" when it hands the replicator a task with at least one candidate node. (With overlapping
-\* rules the code as found keeps calling the replicator with an EMPTY candidate list: a holder remembered from
-\* an earlier rule does not lower the shortage of a later rule - a phantom shortage that copies nothing.)
-Replicates(d) == \E k \in 1..Len(d.tasks) : Len(d.tasks[k].nodes) > 0
-Quiet(hs) == \A n \in hs : LET d == Decide27(n, hs, {}, {}) IN ~Replicates(d) /\ d.del = "none"
-NoTasks(hs) == \A n \in hs : ~Replicates(Decide27(n, hs, {}, {}))
-e\* a check "replicates" when it hands the replicator a task with at least one candidate node. (With overlapping
-\* rules the code as found keeps calling the replicator with an EMPTY candidate list: a holder remembered from
-\* an earlier rule does not lower the shortage of a later rule - a phantom shortage that copies nothing.)
-Replicates(d) == \E k \in 1..Len(d.tasks) : Len(d.tasks[k].nodes) > 0
-Quiet(hs) == \A n \in hs : LET d == Decide27(n, hs, {}, {}) IN ~Replicates(d) /\ d.del = "none"
-NoTasks(hs) == \A n \in hs : ~Replicates(Decide27(n, hs, {}, {}))
-r\* a check "replicates" when it hands the replicator a task with at least one candidate node. (With overlapping
-\* rules the code as found keeps calling the replicator with an EMPTY candidate list: a holder remembered from
-\* an earlier rule does not lower the shortage of a later rule - a phantom shortage that copies nothing.)
-Replicates(d) == \E k \in 1..Len(d.tasks) : Len(d.tasks[k].nodes) > 0
-Quiet(hs) == \A n \in hs : LET d == Decide27(n, hs, {}, {}) IN ~Replicates(d) /\ d.del = "none"
-NoTasks(hs) == \A n \in hs : ~Replicates(Decide27(n, hs, {}, {}))
-
-\* a check "replicates" when it hands the replicator a task with at least one candidate node. (With overlapping
-\* rules the code as found keeps calling the replicator with an EMPTY candidate list: a holder remembered from
-\* an earlier rule does not lower the shortage of a later rule - a phantom shortage that copies nothing.)
-Replicates(d) == \E k \in 1..Len(d.tasks) : Len(d.tasks[k].nodes) > 0
-Quiet(hs) == \A n \in hs : LET d == Decide27(n, hs, {}, {}) IN ~Replicates(d) /\ d.del = "none"
-NoTasks(hs) == \A n \in hs : ~Replicates(Decide27(n, hs, {}, {}))
- \* a check "replicates" when it hands the replicator a task with at least one candidate node. (With overlapping
-\* rules the code as found keeps calling the replicator with an EMPTY candidate list: a holder remembered from
-\* an earlier rule does not lower the shortage of a later rule - a phantom shortage that copies nothing.)
-Replicates(d) == \E k \in 1..Len(d.tasks) : Len(d.tasks[k].nodes) > 0
-Quiet(hs) == \A n \in hs : LET d == Decide27(n, hs, {}, {}) IN ~Replicates(d) /\ d.del = "none"
-NoTasks(hs) == \A n \in hs : ~Replicates(Decide27(n, hs, {}, {}))
- \* a check "replicates" when it hands the replicator a task with at least one candidate node. (With overlapping
-\* rules the code as found keeps calling the replicator with an EMPTY candidate list: a holder remembered from
-\* an earlier rule does not lower the shortage of a later rule - a phantom shortage that copies nothing.)
-Replicates(d) == \E k \in 1..Len(d.tasks) : Len(d.tasks[k].nodes) > 0
-Quiet(hs) == \A n \in hs : LET d == Decide27(n, hs, {}, {}) IN ~Replicates(d) /\ d.del = "none"
-NoTasks(hs) == \A n \in hs : ~Replicates(Decide27(n, hs, {}, {}))
- \* a check "replicates" when it hands the replicator a task with at least one candidate node. (With overlapping
-\* rules the code as found keeps calling the replicator with an EMPTY candidate list: a holder remembered from
-\* an earlier rule does not lower the shortage of a later rule - a phantom shortage that copies nothing.)
-Replicates(d) == \E k \in 1..Len(d.tasks) : Len(d.tasks[k].nodes) > 0
-Quiet(hs) == \A n \in hs : LET d == Decide27(n, hs, {}, {}) IN ~Replicates(d) /\ d.del = "none"
-NoTasks(hs) == \A n \in hs : ~Replicates(Decide27(n, hs, {}, {}))
-M\* a check "replicates" when it hands the replicator a task with at least one candidate node. (With overlapping
-\* rules the code as found keeps calling the replicator with an EMPTY candidate list: a holder remembered from
-\* an earlier rule does not lower the shortage of a later rule - a phantom shortage that copies nothing.)
-Replicates(d) == \E k \in 1..Len(d.tasks) : Len(d.tasks[k].nodes) > 0
-Quiet(hs) == \A n \in hs : LET d == Decide27(n, hs, {}, {}) IN ~Replicates(d) /\ d.del = "none"
-NoTasks(hs) == \A n \in hs : ~Replicates(Decide27(n, hs, {}, {}))
-a\* a check "replicates" when it hands the replicator a task with at least one candidate node. (With overlapping
-\* rules the code as found keeps calling the replicator with an EMPTY candidate list: a holder remembered from
-\* an earlier rule does not lower the shortage of a later rule - a phantom shortage that copies nothing.)
-Replicates(d) == \E k \in 1..Len(d.tasks) : Len(d.tasks[k].nodes) > 0
-Quiet(hs) == \A n \in hs : LET d == Decide27(n, hs, {}, {}) IN ~Replicates(d) /\ d.del = "none"
-NoTasks(hs) == \A n \in hs : ~Replicates(Decide27(n, hs, {}, {}))
-x\* a check "replicates" when it hands the replicator a task with at least one candidate node. (With overlapping
-\* rules the code as found keeps calling the replicator with an EMPTY candidate list: a holder remembered from
-\* an earlier rule does not lower the shortage of a later rule - a phantom shortage that copies nothing.)
-Replicates(d) == \E k \in 1..Len(d.tasks) : Len(d.tasks[k].nodes) > 0
-Quiet(hs) == \A n \in hs : LET d == Decide27(n, hs, {}, {}) IN ~Replicates(d) /\ d.del = "none"
-NoTasks(hs) == \A n \in hs : ~Replicates(Decide27(n, hs, {}, {}))
-R\* a check "replicates" when it hands the replicator a task with at least one candidate node. (With overlapping
-\* rules the code as found keeps calling the replicator with an EMPTY candidate list: a holder remembered from
-\* an earlier rule does not lower the shortage of a later rule - a phantom shortage that copies nothing.)
-Replicates(d) == \E k \in 1..Len(d.tasks) : Len(d.tasks[k].nodes) > 0
-Quiet(hs) == \A n \in hs : LET d == Decide27(n, hs, {}, {}) IN ~Replicates(d) /\ d.del = "none"
-NoTasks(hs) == \A n \in hs : ~Replicates(Decide27(n, hs, {}, {}))
-o\* a check "replicates" when it hands the replicator a task with at least one candidate node. (With overlapping
-\* rules the code as found keeps calling the replicator with an EMPTY candidate list: a holder remembered from
-\* an earlier rule does not lower the shortage of a later rule - a phantom shortage that copies nothing.)
-Replicates(d) == \E k \in 1..Len(d.tasks) : Len(d.tasks[k].nodes) > 0
-Quiet(hs) == \A n \in hs : LET d == Decide27(n, hs, {}, {}) IN ~Replicates(d) /\ d.del = "none"
-NoTasks(hs) == \A n \in hs : ~Replicates(Decide27(n, hs, {}, {}))
-u\* a check "replicates" when it hands the replicator a task with at least one candidate node. (With overlapping
-\* rules the code as found keeps calling the replicator with an EMPTY candidate list: a holder remembered from
-\* an earlier rule does not lower the shortage of a later rule - a phantom shortage that copies nothing.)
-Replicates(d) == \E k \in 1..Len(d.tasks) : Len(d.tasks[k].nodes) > 0
-Quiet(hs) == \A n \in hs : LET d == Decide27(n, hs, {}, {}) IN ~Replicates(d) /\ d.del = "none"
-NoTasks(hs) == \A n \in hs : ~Replicates(Decide27(n, hs, {}, {}))
-n\* a check "replicates" when it hands the replicator a task with at least one candidate node. (With overlapping
-\* rules the code as found keeps calling the replicator with an EMPTY candidate list: a holder remembered from
-\* an earlier rule does not lower the shortage of a later rule - a phantom shortage that copies nothing.)
-Replicates(d) == \E k \in 1..Len(d.tasks) : Len(d.tasks[k].nodes) > 0
-Quiet(hs) == \A n \in hs : LET d == Decide27(n, hs, {}, {}) IN ~Replicates(d) /\ d.del = "none"
-NoTasks(hs) == \A n \in hs : ~Replicates(Decide27(n, hs, {}, {}))
-d\* a check "replicates" when it hands the replicator a task with at least one candidate node. (With overlapping
-\* rules the code as found keeps calling the replicator with an EMPTY candidate list: a holder remembered from
-\* an earlier rule does not lower the shortage of a later rule - a phantom shortage that copies nothing.)
-Replicates(d) == \E k \in 1..Len(d.tasks) : Len(d.tasks[k].nodes) > 0
-Quiet(hs) == \A n \in hs : LET d == Decide27(n, hs, {}, {}) IN ~Replicates(d) /\ d.del = "none"
-NoTasks(hs) == \A n \in hs : ~Replicates(Decide27(n, hs, {}, {}))
-s\* a check "replicates" when it hands the replicator a task with at least one candidate node. (With overlapping
-\* rules the code as found keeps calling the replicator with an EMPTY candidate list: a holder remembered from
-\* an earlier rule does not lower the shortage of a later rule - a phantom shortage that copies nothing.)
-Replicates(d) == \E k \in 1..Len(d.tasks) : Len(d.tasks[k].nodes) > 0
-Quiet(hs) == \A n \in hs : LET d == Decide27(n, hs, {}, {}) IN ~Replicates(d) /\ d.del = "none"
-NoTasks(hs) == \A n \in hs : ~Replicates(Decide27(n, hs, {}, {}))
- \* a check "replicates" when it hands the replicator a task with at least one candidate node. (With overlapping
-\* rules the code as found keeps calling the replicator with an EMPTY candidate list: a holder remembered from
-\* an earlier rule does not lower the shortage of a later rule - a phantom shortage that copies nothing.)
-Replicates(d) == \E k \in 1..Len(d.tasks) : Len(d.tasks[k].nodes) > 0
-Quiet(hs) == \A n \in hs : LET d == Decide27(n, hs, {}, {}) IN ~Replicates(d) /\ d.del = "none"
-NoTasks(hs) == \A n \in hs : ~Replicates(Decide27(n, hs, {}, {}))
-r\* a check "replicates" when it hands the replicator a task with at least one candidate node. (With overlapping
-\* rules the code as found keeps calling the replicator with an EMPTY candidate list: a holder remembered from
-\* an earlier rule does not lower the shortage of a later rule - a phantom shortage that copies nothing.)
-Replicates(d) == \E k \in 1..Len(d.tasks) : Len(d.tasks[k].nodes) > 0
-Quiet(hs) == \A n \in hs : LET d == Decide27(n, hs, {}, {}) IN ~Replicates(d) /\ d.del = "none"
-NoTasks(hs) == \A n \in hs : ~Replicates(Decide27(n, hs, {}, {}))
-o\* a check "replicates" when it hands the replicator a task with at least one candidate node. (With overlapping
-\* rules the code as found keeps calling the replicator with an EMPTY candidate list: a holder remembered from
-\* an earlier rule does not lower the shortage of a later rule - a phantom shortage that copies nothing.)
-Replicates(d) == \E k \in 1..Len(d.tasks) : Len(d.tasks[k].nodes) > 0
-Quiet(hs) == \A n \in hs : LET d == Decide27(n, hs, {}, {}) IN ~Replicates(d) /\ d.del = "none"
-NoTasks(hs) == \A n \in hs : ~Replicates(Decide27(n, hs, {}, {}))
-u\* a check "replicates" when it hands the replicator a task with at least one candidate node. (With overlapping
-\* rules the code as found keeps calling the replicator with an EMPTY candidate list: a holder remembered from
-\* an earlier rule does not lower the shortage of a later rule - a phantom shortage that copies nothing.)
-Replicates(d) == \E k \in 1..Len(d.tasks) : Len(d.tasks[k].nodes) > 0
-Quiet(hs) == \A n \in hs : LET d == Decide27(n, hs, {}, {}) IN ~Replicates(d) /\ d.del = "none"
-NoTasks(hs) == \A n \in hs : ~Replicates(Decide27(n, hs, {}, {}))
-n\* a check "replicates" when it hands the replicator a task with at least one candidate node. (With overlapping
-\* rules the code as found keeps calling the replicator with an EMPTY candidate list: a holder remembered from
-\* an earlier rule does not lower the shortage of a later rule - a phantom shortage that copies nothing.)
-Replicates(d) == \E k \in 1..Len(d.tasks) : Len(d.tasks[k].nodes) > 0
-Quiet(hs) == \A n \in hs : LET d == Decide27(n, hs, {}, {}) IN ~Replicates(d) /\ d.del = "none"
-NoTasks(hs) == \A n \in hs : ~Replicates(Decide27(n, hs, {}, {}))
-d\* a check "replicates" when it hands the replicator a task with at least one candidate node. (With overlapping
-\* rules the code as found keeps calling the replicator with an EMPTY candidate list: a holder remembered from
-\* an earlier rule does not lower the shortage of a later rule - a phantom shortage that copies nothing.)
-Replicates(d) == \E k \in 1..Len(d.tasks) : Len(d.tasks[k].nodes) > 0
-Quiet(hs) == \A n \in hs : LET d == Decide27(n, hs, {}, {}) IN ~Replicates(d) /\ d.del = "none"
-NoTasks(hs) == \A n \in hs : ~Replicates(Decide27(n, hs, {}, {}))
-s\* a check "replicates" when it hands the replicator a task with at least one candidate node. (With overlapping
-\* rules the code as found keeps calling the replicator with an EMPTY candidate list: a holder remembered from
-\* an earlier rule does not lower the shortage of a later rule - a phantom shortage that copies nothing.)
-Replicates(d) == \E k \in 1..Len(d.tasks) : Len(d.tasks[k].nodes) > 0
-Quiet(hs) == \A n \in hs : LET d == Decide27(n, hs, {}, {}) IN ~Replicates(d) /\ d.del = "none"
-NoTasks(hs) == \A n \in hs : ~Replicates(Decide27(n, hs, {}, {}))
- \* a check "replicates" when it hands the replicator a task with at least one candidate node. (With overlapping
-\* rules the code as found keeps calling the replicator with an EMPTY candidate list: a holder remembered from
-\* an earlier rule does not lower the shortage of a later rule - a phantom shortage that copies nothing.)
-Replicates(d) == \E k \in 1..Len(d.tasks) : Len(d.tasks[k].nodes) > 0
-Quiet(hs) == \A n \in hs : LET d == Decide27(n, hs, {}, {}) IN ~Replicates(d) /\ d.del = "none"
-NoTasks(hs) == \A n \in hs : ~Replicates(Decide27(n, hs, {}, {}))
-e\* a check "replicates" when it hands the replicator a task with at least one candidate node. (With overlapping
-\* rules the code as found keeps calling the replicator with an EMPTY candidate list: a holder remembered from
-\* an earlier rule does not lower the shortage of a later rule - a phantom shortage that copies nothing.)
-Replicates(d) == \E k \in 1..Len(d.tasks) : Len(d.tasks[k].nodes) > 0
-Quiet(hs) == \A n \in hs : LET d == Decide27(n, hs, {}, {}) IN ~Replicates(d) /\ d.del = "none"
-NoTasks(hs) == \A n \in hs : ~Replicates(Decide27(n, hs, {}, {}))
-v\* a check "replicates" when it hands the replicator a task with at least one candidate node. (With overlapping
-\* rules the code as found keeps calling the replicator with an EMPTY candidate list: a holder remembered from
-\* an earlier rule does not lower the shortage of a later rule - a phantom shortage that copies nothing.)
-Replicates(d) == \E k \in 1..Len(d.tasks) : Len(d.tasks[k].nodes) > 0
-Quiet(hs) == \A n \in hs : LET d == Decide27(n, hs, {}, {}) IN ~Replicates(d) /\ d.del = "none"
-NoTasks(hs) == \A n \in hs : ~Replicates(Decide27(n, hs, {}, {}))
-e\* a check "replicates" when it hands the replicator a task with at least one candidate node. (With overlapping
-\* rules the code as found keeps calling the replicator with an EMPTY candidate list: a holder remembered from
-\* an earlier rule does not lower the shortage of a later rule - a phantom shortage that copies nothing.)
-Replicates(d) == \E k \in 1..Len(d.tasks) : Len(d.tasks[k].nodes) > 0
-Quiet(hs) == \A n \in hs : LET d == Decide27(n, hs, {}, {}) IN ~Replicates(d) /\ d.del = "none"
-NoTasks(hs) == \A n \in hs : ~Replicates(Decide27(n, hs, {}, {}))
-r\* a check "replicates" when it hands the replicator a task with at least one candidate node. (With overlapping
-\* rules the code as found keeps calling the replicator with an EMPTY candidate list: a holder remembered from
-\* an earlier rule does not lower the shortage of a later rule - a phantom shortage that copies nothing.)
-Replicates(d) == \E k \in 1..Len(d.tasks) : Len(d.tasks[k].nodes) > 0
-Quiet(hs) == \A n \in hs : LET d == Decide27(n, hs, {}, {}) IN ~Replicates(d) /\ d.del = "none"
-NoTasks(hs) == \A n \in hs : ~Replicates(Decide27(n, hs, {}, {}))
-y\* a check "replicates" when it hands the replicator a task with at least one candidate node. (With overlapping
-\* rules the code as found keeps calling the replicator with an EMPTY candidate list: a holder remembered from
-\* an earlier rule does not lower the shortage of a later rule - a phantom shortage that copies nothing.)
-Replicates(d) == \E k \in 1..Len(d.tasks) : Len(d.tasks[k].nodes) > 0
-Quiet(hs) == \A n \in hs : LET d == Decide27(n, hs, {}, {}) IN ~Replicates(d) /\ d.del = "none"
-NoTasks(hs) == \A n \in hs : ~Replicates(Decide27(n, hs, {}, {}))
- \* a check "replicates" when it hands the replicator a task with at least one candidate node. (With overlapping
-\* rules the code as found keeps calling the replicator with an EMPTY candidate list: a holder remembered from
-\* an earlier rule does not lower the shortage of a later rule - a phantom shortage that copies nothing.)
-Replicates(d) == \E k \in 1..Len(d.tasks) : Len(d.tasks[k].nodes) > 0
-Quiet(hs) == \A n \in hs : LET d == Decide27(n, hs, {}, {}) IN ~Replicates(d) /\ d.del = "none"
-NoTasks(hs) == \A n \in hs : ~Replicates(Decide27(n, hs, {}, {}))
-i\* a check "replicates" when it hands the replicator a task with at least one candidate node. (With overlapping
-\* rules the code as found keeps calling the replicator with an EMPTY candidate list: a holder remembered from
-\* an earlier rule does not lower the shortage of a later rule - a phantom shortage that copies nothing.)
-Replicates(d) == \E k \in 1..Len(d.tasks) : Len(d.tasks[k].nodes) > 0
-Quiet(hs) == \A n \in hs : LET d == Decide27(n, hs, {}, {}) IN ~Replicates(d) /\ d.del = "none"
-NoTasks(hs) == \A n \in hs : ~Replicates(Decide27(n, hs, {}, {}))
-n\* a check "replicates" when it hands the replicator a task with at least one candidate node. (With overlapping
-\* rules the code as found keeps calling the replicator with an EMPTY candidate list: a holder remembered from
-\* an earlier rule does not lower the shortage of a later rule - a phantom shortage that copies nothing.)
-Replicates(d) == \E k \in 1..Len(d.tasks) : Len(d.tasks[k].nodes) > 0
-Quiet(hs) == \A n \in hs : LET d == Decide27(n, hs, {}, {}) IN ~Replicates(d) /\ d.del = "none"
-NoTasks(hs) == \A n \in hs : ~Replicates(Decide27(n, hs, {}, {}))
-i\* a check "replicates" when it hands the replicator a task with at least one candidate node. (With overlapping
-\* rules the code as found keeps calling the replicator with an EMPTY candidate list: a holder remembered from
-\* an earlier rule does not lower the shortage of a later rule - a phantom shortage that copies nothing.)
-Replicates(d) == \E k \in 1..Len(d.tasks) : Len(d.tasks[k].nodes) > 0
-Quiet(hs) == \A n \in hs : LET d == Decide27(n, hs, {}, {}) IN ~Replicates(d) /\ d.del = "none"
-NoTasks(hs) == \A n \in hs : ~Replicates(Decide27(n, hs, {}, {}))
-t\* a check "replicates" when it hands the replicator a task with at least one candidate node. (With overlapping
-\* rules the code as found keeps calling the replicator with an EMPTY candidate list: a holder remembered from
-\* an earlier rule does not lower the shortage of a later rule - a phantom shortage that copies nothing.)
-Replicates(d) == \E k \in 1..Len(d.tasks) : Len(d.tasks[k].nodes) > 0
-Quiet(hs) == \A n \in hs : LET d == Decide27(n, hs, {}, {}) IN ~Replicates(d) /\ d.del = "none"
-NoTasks(hs) == \A n \in hs : ~Replicates(Decide27(n, hs, {}, {}))
-i\* a check "replicates" when it hands the replicator a task with at least one candidate node. (With overlapping
-\* rules the code as found keeps calling the replicator with an EMPTY candidate list: a holder remembered from
-\* an earlier rule does not lower the shortage of a later rule - a phantom shortage that copies nothing.)
-Replicates(d) == \E k \in 1..Len(d.tasks) : Len(d.tasks[k].nodes) > 0
-Quiet(hs) == \A n \in hs : LET d == Decide27(n, hs, {}, {}) IN ~Replicates(d) /\ d.del = "none"
-NoTasks(hs) == \A n \in hs : ~Replicates(Decide27(n, hs, {}, {}))
-a\* a check "replicates" when it hands the replicator a task with at least one candidate node. (With overlapping
-\* rules the code as found keeps calling the replicator with an EMPTY candidate list: a holder remembered from
-\* an earlier rule does not lower the shortage of a later rule - a phantom shortage that copies nothing.)
-Replicates(d) == \E k \in 1..Len(d.tasks) : Len(d.tasks[k].nodes) > 0
-Quiet(hs) == \A n \in hs : LET d == Decide27(n, hs, {}, {}) IN ~Replicates(d) /\ d.del = "none"
-NoTasks(hs) == \A n \in hs : ~Replicates(Decide27(n, hs, {}, {}))
-l\* a check "replicates" when it hands the replicator a task with at least one candidate node. (With overlapping
-\* rules the code as found keeps calling the replicator with an EMPTY candidate list: a holder remembered from
-\* an earlier rule does not lower the shortage of a later rule - a phantom shortage that copies nothing.)
-Replicates(d) == \E k \in 1..Len(d.tasks) : Len(d.tasks[k].nodes) > 0
-Quiet(hs) == \A n \in hs : LET d == Decide27(n, hs, {}, {}) IN ~Replicates(d) /\ d.del = "none"
-NoTasks(hs) == \A n \in hs : ~Replicates(Decide27(n, hs, {}, {}))
- \* a check "replicates" when it hands the replicator a task with at least one candidate node. (With overlapping
-\* rules the code as found keeps calling the replicator with an EMPTY candidate list: a holder remembered from
-\* an earlier rule does not lower the shortage of a later rule - a phantom shortage that copies nothing.)
-Replicates(d) == \E k \in 1..Len(d.tasks) : Len(d.tasks[k].nodes) > 0
-Quiet(hs) == \A n \in hs : LET d == Decide27(n, hs, {}, {}) IN ~Replicates(d) /\ d.del = "none"
-NoTasks(hs) == \A n \in hs : ~Replicates(Decide27(n, hs, {}, {}))
-d\* a check "replicates" when it hands the replicator a task with at least one candidate node. (With overlapping
-\* rules the code as found keeps calling the replicator with an EMPTY candidate list: a holder remembered from
-\* an earlier rule does not lower the shortage of a later rule - a phantom shortage that copies nothing.)
-Replicates(d) == \E k \in 1..Len(d.tasks) : Len(d.tasks[k].nodes) > 0
-Quiet(hs) == \A n \in hs : LET d == Decide27(n, hs, {}, {}) IN ~Replicates(d) /\ d.del = "none"
-NoTasks(hs) == \A n \in hs : ~Replicates(Decide27(n, hs, {}, {}))
-i\* a check "replicates" when it hands the replicator a task with at least one candidate node. (With overlapping
-\* rules the code as found keeps calling the replicator with an EMPTY candidate list: a holder remembered from
-\* an earlier rule does not lower the shortage of a later rule - a phantom shortage that copies nothing.)
-Replicates(d) == \E k \in 1..Len(d.tasks) : Len(d.tasks[k].nodes) > 0
-Quiet(hs) == \A n \in hs : LET d == Decide27(n, hs, {}, {}) IN ~Replicates(d) /\ d.del = "none"
-NoTasks(hs) == \A n \in hs : ~Replicates(Decide27(n, hs, {}, {}))
-s\* a check "replicates" when it hands the replicator a task with at least one candidate node. (With overlapping
-\* rules the code as found keeps calling the replicator with an EMPTY candidate list: a holder remembered from
-\* an earlier rule does not lower the shortage of a later rule - a phantom shortage that copies nothing.)
-Replicates(d) == \E k \in 1..Len(d.tasks) : Len(d.tasks[k].nodes) > 0
-Quiet(hs) == \A n \in hs : LET d == Decide27(n, hs, {}, {}) IN ~Replicates(d) /\ d.del = "none"
-NoTasks(hs) == \A n \in hs : ~Replicates(Decide27(n, hs, {}, {}))
-t\* a check "replicates" when it hands the replicator a task with at least one candidate node. (With overlapping
-\* rules the code as found keeps calling the replicator with an EMPTY candidate list: a holder remembered from
-\* an earlier rule does not lower the shortage of a later rule - a phantom shortage that copies nothing.)
-Replicates(d) == \E k \in 1..Len(d.tasks) : Len(d.tasks[k].nodes) > 0
-Quiet(hs) == \A n \in hs : LET d == Decide27(n, hs, {}, {}) IN ~Replicates(d) /\ d.del = "none"
-NoTasks(hs) == \A n \in hs : ~Replicates(Decide27(n, hs, {}, {}))
-r\* a check "replicates" when it hands the replicator a task with at least one candidate node. (With overlapping
-\* rules the code as found keeps calling the replicator with an EMPTY candidate list: a holder remembered from
-\* an earlier rule does not lower the shortage of a later rule - a phantom shortage that copies nothing.)
-Replicates(d) == \E k \in 1..Len(d.tasks) : Len(d.tasks[k].nodes) > 0
-Quiet(hs) == \A n \in hs : LET d == Decide27(n, hs, {}, {}) IN ~Replicates(d) /\ d.del = "none"
-NoTasks(hs) == \A n \in hs : ~Replicates(Decide27(n, hs, {}, {}))
-i\* a check "replicates" when it hands the replicator a task with at least one candidate node. (With overlapping
-\* rules the code as found keeps calling the replicator with an EMPTY candidate list: a holder remembered from
-\* an earlier rule does not lower the shortage of a later rule - a phantom shortage that copies nothing.)
-Replicates(d) == \E k \in 1..Len(d.tasks) : Len(d.tasks[k].nodes) > 0
-Quiet(hs) == \A n \in hs : LET d == Decide27(n, hs, {}, {}) IN ~Replicates(d) /\ d.del = "none"
-NoTasks(hs) == \A n \in hs : ~Replicates(Decide27(n, hs, {}, {}))
-b\* a check "replicates" when it hands the replicator a task with at least one candidate node. (With overlapping
-\* rules the code as found keeps calling the replicator with an EMPTY candidate list: a holder remembered from
-\* an earlier rule does not lower the shortage of a later rule - a phantom shortage that copies nothing.)
-Replicates(d) == \E k \in 1..Len(d.tasks) : Len(d.tasks[k].nodes) > 0
-Quiet(hs) == \A n \in hs : LET d == Decide27(n, hs, {}, {}) IN ~Replicates(d) /\ d.del = "none"
-NoTasks(hs) == \A n \in hs : ~Replicates(Decide27(n, hs, {}, {}))
-u\* a check "replicates" when it hands the replicator a task with at least one candidate node. (With overlapping
-\* rules the code as found keeps calling the replicator with an EMPTY candidate list: a holder remembered from
-\* an earlier rule does not lower the shortage of a later rule - a phantom shortage that copies nothing.)
-Replicates(d) == \E k \in 1..Len(d.tasks) : Len(d.tasks[k].nodes) > 0
-Quiet(hs) == \A n \in hs : LET d == Decide27(n, hs, {}, {}) IN ~Replicates(d) /\ d.del = "none"
-NoTasks(hs) == \A n \in hs : ~Replicates(Decide27(n, hs, {}, {}))
-t\* a check "replicates" when it hands the replicator a task with at least one candidate node. (With overlapping
-\* rules the code as found keeps calling the replicator with an EMPTY candidate list: a holder remembered from
-\* an earlier rule does not lower the shortage of a later rule - a phantom shortage that copies nothing.)
-Replicates(d) == \E k \in 1..Len(d.tasks) : Len(d.tasks[k].nodes) > 0
-Quiet(hs) == \A n \in hs : LET d == Decide27(n, hs, {}, {}) IN ~Replicates(d) /\ d.del = "none"
-NoTasks(hs) == \A n \in hs : ~Replicates(Decide27(n, hs, {}, {}))
-i\* a check "replicates" when it hands the replicator a task with at least one candidate node. (With overlapping
-\* rules the code as found keeps calling the replicator with an EMPTY candidate list: a holder remembered from
-\* an earlier rule does not lower the shortage of a later rule - a phantom shortage that copies nothing.)
-Replicates(d) == \E k \in 1..Len(d.tasks) : Len(d.tasks[k].nodes) > 0
-Quiet(hs) == \A n \in hs : LET d == Decide27(n, hs, {}, {}) IN ~Replicates(d) /\ d.del = "none"
-NoTasks(hs) == \A n \in hs : ~Replicates(Decide27(n, hs, {}, {}))
-o\* a check "replicates" when it hands the replicator a task with at least one candidate node. (With overlapping
-\* rules the code as found keeps calling the replicator with an EMPTY candidate list: a holder remembered from
-\* an earlier rule does not lower the shortage of a later rule - a phantom shortage that copies nothing.)
-Replicates(d) == \E k \in 1..Len(d.tasks) : Len(d.tasks[k].nodes) > 0
-Quiet(hs) == \A n \in hs : LET d == Decide27(n, hs, {}, {}) IN ~Replicates(d) /\ d.del = "none"
-NoTasks(hs) == \A n \in hs : ~Replicates(Decide27(n, hs, {}, {}))
-n\* a check "replicates" when it hands the replicator a task with at least one candidate node. (With overlapping
-\* rules the code as found keeps calling the replicator with an EMPTY candidate list: a holder remembered from
-\* an earlier rule does not lower the shortage of a later rule - a phantom shortage that copies nothing.)
-Replicates(d) == \E k \in 1..Len(d.tasks) : Len(d.tasks[k].nodes) > 0
-Quiet(hs) == \A n \in hs : LET d == Decide27(n, hs, {}, {}) IN ~Replicates(d) /\ d.del = "none"
-NoTasks(hs) == \A n \in hs : ~Replicates(Decide27(n, hs, {}, {}))
- \* a check "replicates" when it hands the replicator a task with at least one candidate node. (With overlapping
-\* rules the code as found keeps calling the replicator with an EMPTY candidate list: a holder remembered from
-\* an earlier rule does not lower the shortage of a later rule - a phantom shortage that copies nothing.)
-Replicates(d) == \E k \in 1..Len(d.tasks) : Len(d.tasks[k].nodes) > 0
-Quiet(hs) == \A n \in hs : LET d == Decide27(n, hs, {}, {}) IN ~Replicates(d) /\ d.del = "none"
-NoTasks(hs) == \A n \in hs : ~Replicates(Decide27(n, hs, {}, {}))
-i\* a check "replicates" when it hands the replicator a task with at least one candidate node. (With overlapping
-\* rules the code as found keeps calling the replicator with an EMPTY candidate list: a holder remembered from
-\* an earlier rule does not lower the shortage of a later rule - a phantom shortage that copies nothing.)
-Replicates(d) == \E k \in 1..Len(d.tasks) : Len(d.tasks[k].nodes) > 0
-Quiet(hs) == \A n \in hs : LET d == Decide27(n, hs, {}, {}) IN ~Replicates(d) /\ d.del = "none"
-NoTasks(hs) == \A n \in hs : ~Replicates(Decide27(n, hs, {}, {}))
-s\* a check "replicates" when it hands the replicator a task with at least one candidate node. (With overlapping
-\* rules the code as found keeps calling the replicator with an EMPTY candidate list: a holder remembered from
-\* an earlier rule does not lower the shortage of a later rule - a phantom shortage that copies nothing.)
-Replicates(d) == \E k \in 1..Len(d.tasks) : Len(d.tasks[k].nodes) > 0
-Quiet(hs) == \A n \in hs : LET d == Decide27(n, hs, {}, {}) IN ~Replicates(d) /\ d.del = "none"
-NoTasks(hs) == \A n \in hs : ~Replicates(Decide27(n, hs, {}, {}))
- \* a check "replicates" when it hands the replicator a task with at least one candidate node. (With overlapping
-\* rules the code as found keeps calling the replicator with an EMPTY candidate list: a holder remembered from
-\* an earlier rule does not lower the shortage of a later rule - a phantom shortage that copies nothing.)
-Replicates(d) == \E k \in 1..Len(d.tasks) : Len(d.tasks[k].nodes) > 0
-Quiet(hs) == \A n \in hs : LET d == Decide27(n, hs, {}, {}) IN ~Replicates(d) /\ d.del = "none"
-NoTasks(hs) == \A n \in hs : ~Replicates(Decide27(n, hs, {}, {}))
-c\* a check "replicates" when it hands the replicator a task with at least one candidate node. (With overlapping
-\* rules the code as found keeps calling the replicator with an EMPTY candidate list: a holder remembered from
-\* an earlier rule does not lower the shortage of a later rule - a phantom shortage that copies nothing.)
-Replicates(d) == \E k \in 1..Len(d.tasks) : Len(d.tasks[k].nodes) > 0
-Quiet(hs) == \A n \in hs : LET d == Decide27(n, hs, {}, {}) IN ~Replicates(d) /\ d.del = "none"
-NoTasks(hs) == \A n \in hs : ~Replicates(Decide27(n, hs, {}, {}))
-o\* a check "replicates" when it hands the replicator a task with at least one candidate node. (With overlapping
-\* rules the code as found keeps calling the replicator with an EMPTY candidate list: a holder remembered from
-\* an earlier rule does not lower the shortage of a later rule - a phantom shortage that copies nothing.)
-Replicates(d) == \E k \in 1..Len(d.tasks) : Len(d.tasks[k].nodes) > 0
-Quiet(hs) == \A n \in hs : LET d == Decide27(n, hs, {}, {}) IN ~Replicates(d) /\ d.del = "none"
-NoTasks(hs) == \A n \in hs : ~Replicates(Decide27(n, hs, {}, {}))
-n\* a check "replicates" when it hands the replicator a task with at least one candidate node. (With overlapping
-\* rules the code as found keeps calling the replicator with an EMPTY candidate list: a holder remembered from
-\* an earlier rule does not lower the shortage of a later rule - a phantom shortage that copies nothing.)
-Replicates(d) == \E k \in 1..Len(d.tasks) : Len(d.tasks[k].nodes) > 0
-Quiet(hs) == \A n \in hs : LET d == Decide27(n, hs, {}, {}) IN ~Replicates(d) /\ d.del = "none"
-NoTasks(hs) == \A n \in hs : ~Replicates(Decide27(n, hs, {}, {}))
-v\* a check "replicates" when it hands the replicator a task with at least one candidate node. (With overlapping
-\* rules the code as found keeps calling the replicator with an EMPTY candidate list: a holder remembered from
-\* an earlier rule does not lower the shortage of a later rule - a phantom shortage that copies nothing.)
-Replicates(d) == \E k \in 1..Len(d.tasks) : Len(d.tasks[k].nodes) > 0
-Quiet(hs) == \A n \in hs : LET d == Decide27(n, hs, {}, {}) IN ~Replicates(d) /\ d.del = "none"
-NoTasks(hs) == \A n \in hs : ~Replicates(Decide27(n, hs, {}, {}))
-e\* a check "replicates" when it hands the replicator a task with at least one candidate node. (With overlapping
-\* rules the code as found keeps calling the replicator with an EMPTY candidate list: a holder remembered from
-\* an earlier rule does not lower the shortage of a later rule - a phantom shortage that copies nothing.)
-Replicates(d) == \E k \in 1..Len(d.tasks) : Len(d.tasks[k].nodes) > 0
-Quiet(hs) == \A n \in hs : LET d == Decide27(n, hs, {}, {}) IN ~Replicates(d) /\ d.del = "none"
-NoTasks(hs) == \A n \in hs : ~Replicates(Decide27(n, hs, {}, {}))
-r\* a check "replicates" when it hands the replicator a task with at least one candidate node. (With overlapping
-\* rules the code as found keeps calling the replicator with an EMPTY candidate list: a holder remembered from
-\* an earlier rule does not lower the shortage of a later rule - a phantom shortage that copies nothing.)
-Replicates(d) == \E k \in 1..Len(d.tasks) : Len(d.tasks[k].nodes) > 0
-Quiet(hs) == \A n \in hs : LET d == Decide27(n, hs, {}, {}) IN ~Replicates(d) /\ d.del = "none"
-NoTasks(hs) == \A n \in hs : ~Replicates(Decide27(n, hs, {}, {}))
-g\* a check "replicates" when it hands the replicator a task with at least one candidate node. (With overlapping
-\* rules the code as found keeps calling the replicator with an EMPTY candidate list: a holder remembered from
-\* an earlier rule does not lower the shortage of a later rule - a phantom shortage that copies nothing.)
-Replicates(d) == \E k \in 1..Len(d.tasks) : Len(d.tasks[k].nodes) > 0
-Quiet(hs) == \A n \in hs : LET d == Decide27(n, hs, {}, {}) IN ~Replicates(d) /\ d.del = "none"
-NoTasks(hs) == \A n \in hs : ~Replicates(Decide27(n, hs, {}, {}))
-e\* a check "replicates" when it hands the replicator a task with at least one candidate node. (With overlapping
-\* rules the code as found keeps calling the replicator with an EMPTY candidate list: a holder remembered from
-\* an earlier rule does not lower the shortage of a later rule - a phantom shortage that copies nothing.)
-Replicates(d) == \E k \in 1..Len(d.tasks) : Len(d.tasks[k].nodes) > 0
-Quiet(hs) == \A n \in hs : LET d == Decide27(n, hs, {}, {}) IN ~Replicates(d) /\ d.del = "none"
-NoTasks(hs) == \A n \in hs : ~Replicates(Decide27(n, hs, {}, {}))
-d\* a check "replicates" when it hands the replicator a task with at least one candidate node. (With overlapping
-\* rules the code as found keeps calling the replicator with an EMPTY candidate list: a holder remembered from
-\* an earlier rule does not lower the shortage of a later rule - a phantom shortage that copies nothing.)
-Replicates(d) == \E k \in 1..Len(d.tasks) : Len(d.tasks[k].nodes) > 0
-Quiet(hs) == \A n \in hs : LET d == Decide27(n, hs, {}, {}) IN ~Replicates(d) /\ d.del = "none"
-NoTasks(hs) == \A n \in hs : ~Replicates(Decide27(n, hs, {}, {}))
- \* a check "replicates" when it hands the replicator a task with at least one candidate node. (With overlapping
-\* rules the code as found keeps calling the replicator with an EMPTY candidate list: a holder remembered from
-\* an earlier rule does not lower the shortage of a later rule - a phantom shortage that copies nothing.)
-Replicates(d) == \E k \in 1..Len(d.tasks) : Len(d.tasks[k].nodes) > 0
-Quiet(hs) == \A n \in hs : LET d == Decide27(n, hs, {}, {}) IN ~Replicates(d) /\ d.del = "none"
-NoTasks(hs) == \A n \in hs : ~Replicates(Decide27(n, hs, {}, {}))
-(\* a check "replicates" when it hands the replicator a task with at least one candidate node. (With overlapping
-\* rules the code as found keeps calling the replicator with an EMPTY candidate list: a holder remembered from
-\* an earlier rule does not lower the shortage of a later rule - a phantom shortage that copies nothing.)
-Replicates(d) == \E k \in 1..Len(d.tasks) : Len(d.tasks[k].nodes) > 0
-Quiet(hs) == \A n \in hs : LET d == Decide27(n, hs, {}, {}) IN ~Replicates(d) /\ d.del = "none"
-NoTasks(hs) == \A n \in hs : ~Replicates(Decide27(n, hs, {}, {}))
-i\* a check "replicates" when it hands the replicator a task with at least one candidate node. (With overlapping
-\* rules the code as found keeps calling the replicator with an EMPTY candidate list: a holder remembered from
-\* an earlier rule does not lower the shortage of a later rule - a phantom shortage that copies nothing.)
-Replicates(d) == \E k \in 1..Len(d.tasks) : Len(d.tasks[k].nodes) > 0
-Quiet(hs) == \A n \in hs : LET d == Decide27(n, hs, {}, {}) IN ~Replicates(d) /\ d.del = "none"
-NoTasks(hs) == \A n \in hs : ~Replicates(Decide27(n, hs, {}, {}))
-n\* a check "replicates" when it hands the replicator a task with at least one candidate node. (With overlapping
-\* rules the code as found keeps calling the replicator with an EMPTY candidate list: a holder remembered from
-\* an earlier rule does not lower the shortage of a later rule - a phantom shortage that copies nothing.)
-Replicates(d) == \E k \in 1..Len(d.tasks) : Len(d.tasks[k].nodes) > 0
-Quiet(hs) == \A n \in hs : LET d == Decide27(n, hs, {}, {}) IN ~Replicates(d) /\ d.del = "none"
-NoTasks(hs) == \A n \in hs : ~Replicates(Decide27(n, hs, {}, {}))
-v\* a check "replicates" when it hands the replicator a task with at least one candidate node. (With overlapping
-\* rules the code as found keeps calling the replicator with an EMPTY candidate list: a holder remembered from
-\* an earlier rule does not lower the shortage of a later rule - a phantom shortage that copies nothing.)
-Replicates(d) == \E k \in 1..Len(d.tasks) : Len(d.tasks[k].nodes) > 0
-Quiet(hs) == \A n \in hs : LET d == Decide27(n, hs, {}, {}) IN ~Replicates(d) /\ d.del = "none"
-NoTasks(hs) == \A n \in hs : ~Replicates(Decide27(n, hs, {}, {}))
-a\* a check "replicates" when it hands the replicator a task with at least one candidate node. (With overlapping
-\* rules the code as found keeps calling the replicator with an EMPTY candidate list: a holder remembered from
-\* an earlier rule does not lower the shortage of a later rule - a phantom shortage that copies nothing.)
-Replicates(d) == \E k \in 1..Len(d.tasks) : Len(d.tasks[k].nodes) > 0
-Quiet(hs) == \A n \in hs : LET d == Decide27(n, hs, {}, {}) IN ~Replicates(d) /\ d.del = "none"
-NoTasks(hs) == \A n \in hs : ~Replicates(Decide27(n, hs, {}, {}))
-r\* a check "replicates" when it hands the replicator a task with at least one candidate node. (With overlapping
-\* rules the code as found keeps calling the replicator with an EMPTY candidate list: a holder remembered from
-\* an earlier rule does not lower the shortage of a later rule - a phantom shortage that copies nothing.)
-Replicates(d) == \E k \in 1..Len(d.tasks) : Len(d.tasks[k].nodes) > 0
-Quiet(hs) == \A n \in hs : LET d == Decide27(n, hs, {}, {}) IN ~Replicates(d) /\ d.del = "none"
-NoTasks(hs) == \A n \in hs : ~Replicates(Decide27(n, hs, {}, {}))
-i\* a check "replicates" when it hands the replicator a task with at least one candidate node. (With overlapping
-\* rules the code as found keeps calling the replicator with an EMPTY candidate list: a holder remembered from
-\* an earlier rule does not lower the shortage of a later rule - a phantom shortage that copies nothing.)
-Replicates(d) == \E k \in 1..Len(d.tasks) : Len(d.tasks[k].nodes) > 0
-Quiet(hs) == \A n \in hs : LET d == Decide27(n, hs, {}, {}) IN ~Replicates(d) /\ d.del = "none"
-NoTasks(hs) == \A n \in hs : ~Replicates(Decide27(n, hs, {}, {}))
-a\* a check "replicates" when it hands the replicator a task with at least one candidate node. (With overlapping
-\* rules the code as found keeps calling the replicator with an EMPTY candidate list: a holder remembered from
-\* an earlier rule does not lower the shortage of a later rule - a phantom shortage that copies nothing.)
-Replicates(d) == \E k \in 1..Len(d.tasks) : Len(d.tasks[k].nodes) > 0
-Quiet(hs) == \A n \in hs : LET d == Decide27(n, hs, {}, {}) IN ~Replicates(d) /\ d.del = "none"
-NoTasks(hs) == \A n \in hs : ~Replicates(Decide27(n, hs, {}, {}))
-n\* a check "replicates" when it hands the replicator a task with at least one candidate node. (With overlapping
-\* rules the code as found keeps calling the replicator with an EMPTY candidate list: a holder remembered from
-\* an earlier rule does not lower the shortage of a later rule - a phantom shortage that copies nothing.)
-Replicates(d) == \E k \in 1..Len(d.tasks) : Len(d.tasks[k].nodes) > 0
-Quiet(hs) == \A n \in hs : LET d == Decide27(n, hs, {}, {}) IN ~Replicates(d) /\ d.del = "none"
-NoTasks(hs) == \A n \in hs : ~Replicates(Decide27(n, hs, {}, {}))
-t\* a check "replicates" when it hands the replicator a task with at least one candidate node. (With overlapping
-\* rules the code as found keeps calling the replicator with an EMPTY candidate list: a holder remembered from
-\* an earlier rule does not lower the shortage of a later rule - a phantom shortage that copies nothing.)
-Replicates(d) == \E k \in 1..Len(d.tasks) : Len(d.tasks[k].nodes) > 0
-Quiet(hs) == \A n \in hs : LET d == Decide27(n, hs, {}, {}) IN ~Replicates(d) /\ d.del = "none"
-NoTasks(hs) == \A n \in hs : ~Replicates(Decide27(n, hs, {}, {}))
- \* a check "replicates" when it hands the replicator a task with at least one candidate node. (With overlapping
-\* rules the code as found keeps calling the replicator with an EMPTY candidate list: a holder remembered from
-\* an earlier rule does not lower the shortage of a later rule - a phantom shortage that copies nothing.)
-Replicates(d) == \E k \in 1..Len(d.tasks) : Len(d.tasks[k].nodes) > 0
-Quiet(hs) == \A n \in hs : LET d == Decide27(n, hs, {}, {}) IN ~Replicates(d) /\ d.del = "none"
-NoTasks(hs) == \A n \in hs : ~Replicates(Decide27(n, hs, {}, {}))
-C\* a check "replicates" when it hands the replicator a task with at least one candidate node. (With overlapping
-\* rules the code as found keeps calling the replicator with an EMPTY candidate list: a holder remembered from
-\* an earlier rule does not lower the shortage of a later rule - a phantom shortage that copies nothing.)
-Replicates(d) == \E k \in 1..Len(d.tasks) : Len(d.tasks[k].nodes) > 0
-Quiet(hs) == \A n \in hs : LET d == Decide27(n, hs, {}, {}) IN ~Replicates(d) /\ d.del = "none"
-NoTasks(hs) == \A n \in hs : ~Replicates(Decide27(n, hs, {}, {}))
-o\* a check "replicates" when it hands the replicator a task with at least one candidate node. (With overlapping
-\* rules the code as found keeps calling the replicator with an EMPTY candidate list: a holder remembered from
-\* an earlier rule does not lower the shortage of a later rule - a phantom shortage that copies nothing.)
-Replicates(d) == \E k \in 1..Len(d.tasks) : Len(d.tasks[k].nodes) > 0
-Quiet(hs) == \A n \in hs : LET d == Decide27(n, hs, {}, {}) IN ~Replicates(d) /\ d.del = "none"
-NoTasks(hs) == \A n \in hs : ~Replicates(Decide27(n, hs, {}, {}))
-n\* a check "replicates" when it hands the replicator a task with at least one candidate node. (With overlapping
-\* rules the code as found keeps calling the replicator with an EMPTY candidate list: a holder remembered from
-\* an earlier rule does not lower the shortage of a later rule - a phantom shortage that copies nothing.)
-Replicates(d) == \E k \in 1..Len(d.tasks) : Len(d.tasks[k].nodes) > 0
-Quiet(hs) == \A n \in hs : LET d == Decide27(n, hs, {}, {}) IN ~Replicates(d) /\ d.del = "none"
-NoTasks(hs) == \A n \in hs : ~Replicates(Decide27(n, hs, {}, {}))
-v\* a check "replicates" when it hands the replicator a task with at least one candidate node. (With overlapping
-\* rules the code as found keeps calling the replicator with an EMPTY candidate list: a holder remembered from
-\* an earlier rule does not lower the shortage of a later rule - a phantom shortage that copies nothing.)
-Replicates(d) == \E k \in 1..Len(d.tasks) : Len(d.tasks[k].nodes) > 0
-Quiet(hs) == \A n \in hs : LET d == Decide27(n, hs, {}, {}) IN ~Replicates(d) /\ d.del = "none"
-NoTasks(hs) == \A n \in hs : ~Replicates(Decide27(n, hs, {}, {}))
-e\* a check "replicates" when it hands the replicator a task with at least one candidate node. (With overlapping
-\* rules the code as found keeps calling the replicator with an EMPTY candidate list: a holder remembered from
-\* an earlier rule does not lower the shortage of a later rule - a phantom shortage that copies nothing.)
-Replicates(d) == \E k \in 1..Len(d.tasks) : Len(d.tasks[k].nodes) > 0
-Quiet(hs) == \A n \in hs : LET d == Decide27(n, hs, {}, {}) IN ~Replicates(d) /\ d.del = "none"
-NoTasks(hs) == \A n \in hs : ~Replicates(Decide27(n, hs, {}, {}))
-r\* a check "replicates" when it hands the replicator a task with at least one candidate node. (With overlapping
-\* rules the code as found keeps calling the replicator with an EMPTY candidate list: a holder remembered from
-\* an earlier rule does not lower the shortage of a later rule - a phantom shortage that copies nothing.)
-Replicates(d) == \E k \in 1..Len(d.tasks) : Len(d.tasks[k].nodes) > 0
-Quiet(hs) == \A n \in hs : LET d == Decide27(n, hs, {}, {}) IN ~Replicates(d) /\ d.del = "none"
-NoTasks(hs) == \A n \in hs : ~Replicates(Decide27(n, hs, {}, {}))
-g\* a check "replicates" when it hands the replicator a task with at least one candidate node. (With overlapping
-\* rules the code as found keeps calling the replicator with an EMPTY candidate list: a holder remembered from
-\* an earlier rule does not lower the shortage of a later rule - a phantom shortage that copies nothing.)
-Replicates(d) == \E k \in 1..Len(d.tasks) : Len(d.tasks[k].nodes) > 0
-Quiet(hs) == \A n \in hs : LET d == Decide27(n, hs, {}, {}) IN ~Replicates(d) /\ d.del = "none"
-NoTasks(hs) == \A n \in hs : ~Replicates(Decide27(n, hs, {}, {}))
-e\* a check "replicates" when it hands the replicator a task with at least one candidate node. (With overlapping
-\* rules the code as found keeps calling the replicator with an EMPTY candidate list: a holder remembered from
-\* an earlier rule does not lower the shortage of a later rule - a phantom shortage that copies nothing.)
-Replicates(d) == \E k \in 1..Len(d.tasks) : Len(d.tasks[k].nodes) > 0
-Quiet(hs) == \A n \in hs : LET d == Decide27(n, hs, {}, {}) IN ~Replicates(d) /\ d.del = "none"
-NoTasks(hs) == \A n \in hs : ~Replicates(Decide27(n, hs, {}, {}))
-d\* a check "replicates" when it hands the replicator a task with at least one candidate node. (With overlapping
-\* rules the code as found keeps calling the replicator with an EMPTY candidate list: a holder remembered from
-\* an earlier rule does not lower the shortage of a later rule - a phantom shortage that copies nothing.)
-Replicates(d) == \E k \in 1..Len(d.tasks) : Len(d.tasks[k].nodes) > 0
-Quiet(hs) == \A n \in hs : LET d == Decide27(n, hs, {}, {}) IN ~Replicates(d) /\ d.del = "none"
-NoTasks(hs) == \A n \in hs : ~Replicates(Decide27(n, hs, {}, {}))
-I\* a check "replicates" when it hands the replicator a task with at least one candidate node. (With overlapping
-\* rules the code as found keeps calling the replicator with an EMPTY candidate list: a holder remembered from
-\* an earlier rule does not lower the shortage of a later rule - a phantom shortage that copies nothing.)
-Replicates(d) == \E k \in 1..Len(d.tasks) : Len(d.tasks[k].nodes) > 0
-Quiet(hs) == \A n \in hs : LET d == Decide27(n, hs, {}, {}) IN ~Replicates(d) /\ d.del = "none"
-NoTasks(hs) == \A n \in hs : ~Replicates(Decide27(n, hs, {}, {}))
-n\* a check "replicates" when it hands the replicator a task with at least one candidate node. (With overlapping
-\* rules the code as found keeps calling the replicator with an EMPTY candidate list: a holder remembered from
-\* an earlier rule does not lower the shortage of a later rule - a phantom shortage that copies nothing.)
-Replicates(d) == \E k \in 1..Len(d.tasks) : Len(d.tasks[k].nodes) > 0
-Quiet(hs) == \A n \in hs : LET d == Decide27(n, hs, {}, {}) IN ~Replicates(d) /\ d.del = "none"
-NoTasks(hs) == \A n \in hs : ~Replicates(Decide27(n, hs, {}, {}))
-T\* a check "replicates" when it hands the replicator a task with at least one candidate node. (With overlapping
-\* rules the code as found keeps calling the replicator with an EMPTY candidate list: a holder remembered from
-\* an earlier rule does not lower the shortage of a later rule - a phantom shortage that copies nothing.)
-Replicates(d) == \E k \in 1..Len(d.tasks) : Len(d.tasks[k].nodes) > 0
-Quiet(hs) == \A n \in hs : LET d == Decide27(n, hs, {}, {}) IN ~Replicates(d) /\ d.del = "none"
-NoTasks(hs) == \A n \in hs : ~Replicates(Decide27(n, hs, {}, {}))
-i\* a check "replicates" when it hands the replicator a task with at least one candidate node. (With overlapping
-\* rules the code as found keeps calling the replicator with an EMPTY candidate list: a holder remembered from
-\* an earlier rule does not lower the shortage of a later rule - a phantom shortage that copies nothing.)
-Replicates(d) == \E k \in 1..Len(d.tasks) : Len(d.tasks[k].nodes) > 0
-Quiet(hs) == \A n \in hs : LET d == Decide27(n, hs, {}, {}) IN ~Replicates(d) /\ d.del = "none"
-NoTasks(hs) == \A n \in hs : ~Replicates(Decide27(n, hs, {}, {}))
-m\* a check "replicates" when it hands the replicator a task with at least one candidate node. (With overlapping
-\* rules the code as found keeps calling the replicator with an EMPTY candidate list: a holder remembered from
-\* an earlier rule does not lower the shortage of a later rule - a phantom shortage that copies nothing.)
-Replicates(d) == \E k \in 1..Len(d.tasks) : Len(d.tasks[k].nodes) > 0
-Quiet(hs) == \A n \in hs : LET d == Decide27(n, hs, {}, {}) IN ~Replicates(d) /\ d.del = "none"
-NoTasks(hs) == \A n \in hs : ~Replicates(Decide27(n, hs, {}, {}))
-e\* a check "replicates" when it hands the replicator a task with at least one candidate node. (With overlapping
-\* rules the code as found keeps calling the replicator with an EMPTY candidate list: a holder remembered from
-\* an earlier rule does not lower the shortage of a later rule - a phantom shortage that copies nothing.)
-Replicates(d) == \E k \in 1..Len(d.tasks) : Len(d.tasks[k].nodes) > 0
-Quiet(hs) == \A n \in hs : LET d == Decide27(n, hs, {}, {}) IN ~Replicates(d) /\ d.del = "none"
-NoTasks(hs) == \A n \in hs : ~Replicates(Decide27(n, hs, {}, {}))
-,\* a check "replicates" when it hands the replicator a task with at least one candidate node. (With overlapping
-\* rules the code as found keeps calling the replicator with an EMPTY candidate list: a holder remembered from
-\* an earlier rule does not lower the shortage of a later rule - a phantom shortage that copies nothing.)
-Replicates(d) == \E k \in 1..Len(d.tasks) : Len(d.tasks[k].nodes) > 0
-Quiet(hs) == \A n \in hs : LET d == Decide27(n, hs, {}, {}) IN ~Replicates(d) /\ d.del = "none"
-NoTasks(hs) == \A n \in hs : ~Replicates(Decide27(n, hs, {}, {}))
- \* a check "replicates" when it hands the replicator a task with at least one candidate node. (With overlapping
-\* rules the code as found keeps calling the replicator with an EMPTY candidate list: a holder remembered from
-\* an earlier rule does not lower the shortage of a later rule - a phantom shortage that copies nothing.)
-Replicates(d) == \E k \in 1..Len(d.tasks) : Len(d.tasks[k].nodes) > 0
-Quiet(hs) == \A n \in hs : LET d == Decide27(n, hs, {}, {}) IN ~Replicates(d) /\ d.del = "none"
-NoTasks(hs) == \A n \in hs : ~Replicates(Decide27(n, hs, {}, {}))
-f\* a check "replicates" when it hands the replicator a task with at least one candidate node. (With overlapping
-\* rules the code as found keeps calling the replicator with an EMPTY candidate list: a holder remembered from
-\* an earlier rule does not lower the shortage of a later rule - a phantom shortage that copies nothing.)
-Replicates(d) == \E k \in 1..Len(d.tasks) : Len(d.tasks[k].nodes) > 0
-Quiet(hs) == \A n \in hs : LET d == Decide27(n, hs, {}, {}) IN ~Replicates(d) /\ d.del = "none"
-NoTasks(hs) == \A n \in hs : ~Replicates(Decide27(n, hs, {}, {}))
-o\* a check "replicates" when it hands the replicator a task with at least one candidate node. (With overlapping
-\* rules the code as found keeps calling the replicator with an EMPTY candidate list: a holder remembered from
-\* an earlier rule does not lower the shortage of a later rule - a phantom shortage that copies nothing.)
-Replicates(d) == \E k \in 1..Len(d.tasks) : Len(d.tasks[k].nodes) > 0
-Quiet(hs) == \A n \in hs : LET d == Decide27(n, hs, {}, {}) IN ~Replicates(d) /\ d.del = "none"
-NoTasks(hs) == \A n \in hs : ~Replicates(Decide27(n, hs, {}, {}))
-u\* a check "replicates" when it hands the replicator a task with at least one candidate node. (With overlapping
-\* rules the code as found keeps calling the replicator with an EMPTY candidate list: a holder remembered from
-\* an earlier rule does not lower the shortage of a later rule - a phantom shortage that copies nothing.)
-Replicates(d) == \E k \in 1..Len(d.tasks) : Len(d.tasks[k].nodes) > 0
-Quiet(hs) == \A n \in hs : LET d == Decide27(n, hs, {}, {}) IN ~Replicates(d) /\ d.del = "none"
-NoTasks(hs) == \A n \in hs : ~Replicates(Decide27(n, hs, {}, {}))
-n\* a check "replicates" when it hands the replicator a task with at least one candidate node. (With overlapping
-\* rules the code as found keeps calling the replicator with an EMPTY candidate list: a holder remembered from
-\* an earlier rule does not lower the shortage of a later rule - a phantom shortage that copies nothing.)
-Replicates(d) == \E k \in 1..Len(d.tasks) : Len(d.tasks[k].nodes) > 0
-Quiet(hs) == \A n \in hs : LET d == Decide27(n, hs, {}, {}) IN ~Replicates(d) /\ d.del = "none"
-NoTasks(hs) == \A n \in hs : ~Replicates(Decide27(n, hs, {}, {}))
-d\* a check "replicates" when it hands the replicator a task with at least one candidate node. (With overlapping
-\* rules the code as found keeps calling the replicator with an EMPTY candidate list: a holder remembered from
-\* an earlier rule does not lower the shortage of a later rule - a phantom shortage that copies nothing.)
-Replicates(d) == \E k \in 1..Len(d.tasks) : Len(d.tasks[k].nodes) > 0
-Quiet(hs) == \A n \in hs : LET d == Decide27(n, hs, {}, {}) IN ~Replicates(d) /\ d.del = "none"
-NoTasks(hs) == \A n \in hs : ~Replicates(Decide27(n, hs, {}, {}))
- \* a check "replicates" when it hands the replicator a task with at least one candidate node. (With overlapping
-\* rules the code as found keeps calling the replicator with an EMPTY candidate list: a holder remembered from
-\* an earlier rule does not lower the shortage of a later rule - a phantom shortage that copies nothing.)
-Replicates(d) == \E k \in 1..Len(d.tasks) : Len(d.tasks[k].nodes) > 0
-Quiet(hs) == \A n \in hs : LET d == Decide27(n, hs, {}, {}) IN ~Replicates(d) /\ d.del = "none"
-NoTasks(hs) == \A n \in hs : ~Replicates(Decide27(n, hs, {}, {}))
-b\* a check "replicates" when it hands the replicator a task with at least one candidate node. (With overlapping
-\* rules the code as found keeps calling the replicator with an EMPTY candidate list: a holder remembered from
-\* an earlier rule does not lower the shortage of a later rule - a phantom shortage that copies nothing.)
-Replicates(d) == \E k \in 1..Len(d.tasks) : Len(d.tasks[k].nodes) > 0
-Quiet(hs) == \A n \in hs : LET d == Decide27(n, hs, {}, {}) IN ~Replicates(d) /\ d.del = "none"
-NoTasks(hs) == \A n \in hs : ~Replicates(Decide27(n, hs, {}, {}))
-y\* a check "replicates" when it hands the replicator a task with at least one candidate node. (With overlapping
-\* rules the code as found keeps calling the replicator with an EMPTY candidate list: a holder remembered from
-\* an earlier rule does not lower the shortage of a later rule - a phantom shortage that copies nothing.)
-Replicates(d) == \E k \in 1..Len(d.tasks) : Len(d.tasks[k].nodes) > 0
-Quiet(hs) == \A n \in hs : LET d == Decide27(n, hs, {}, {}) IN ~Replicates(d) /\ d.del = "none"
-NoTasks(hs) == \A n \in hs : ~Replicates(Decide27(n, hs, {}, {}))
- \* a check "replicates" when it hands the replicator a task with at least one candidate node. (With overlapping
-\* rules the code as found keeps calling the replicator with an EMPTY candidate list: a holder remembered from
-\* an earlier rule does not lower the shortage of a later rule - a phantom shortage that copies nothing.)
-Replicates(d) == \E k \in 1..Len(d.tasks) : Len(d.tasks[k].nodes) > 0
-Quiet(hs) == \A n \in hs : LET d == Decide27(n, hs, {}, {}) IN ~Replicates(d) /\ d.del = "none"
-NoTasks(hs) == \A n \in hs : ~Replicates(Decide27(n, hs, {}, {}))
-T\* a check "replicates" when it hands the replicator a task with at least one candidate node. (With overlapping
-\* rules the code as found keeps calling the replicator with an EMPTY candidate list: a holder remembered from
-\* an earlier rule does not lower the shortage of a later rule - a phantom shortage that copies nothing.)
-Replicates(d) == \E k \in 1..Len(d.tasks) : Len(d.tasks[k].nodes) > 0
-Quiet(hs) == \A n \in hs : LET d == Decide27(n, hs, {}, {}) IN ~Replicates(d) /\ d.del = "none"
-NoTasks(hs) == \A n \in hs : ~Replicates(Decide27(n, hs, {}, {}))
-L\* a check "replicates" when it hands the replicator a task with at least one candidate node. (With overlapping
-\* rules the code as found keeps calling the replicator with an EMPTY candidate list: a holder remembered from
-\* an earlier rule does not lower the shortage of a later rule - a phantom shortage that copies nothing.)
-Replicates(d) == \E k \in 1..Len(d.tasks) : Len(d.tasks[k].nodes) > 0
-Quiet(hs) == \A n \in hs : LET d == Decide27(n, hs, {}, {}) IN ~Replicates(d) /\ d.del = "none"
-NoTasks(hs) == \A n \in hs : ~Replicates(Decide27(n, hs, {}, {}))
-C\* a check "replicates" when it hands the replicator a task with at least one candidate node. (With overlapping
-\* rules the code as found keeps calling the replicator with an EMPTY candidate list: a holder remembered from
-\* an earlier rule does not lower the shortage of a later rule - a phantom shortage that copies nothing.)
-Replicates(d) == \E k \in 1..Len(d.tasks) : Len(d.tasks[k].nodes) > 0
-Quiet(hs) == \A n \in hs : LET d == Decide27(n, hs, {}, {}) IN ~Replicates(d) /\ d.del = "none"
-NoTasks(hs) == \A n \in hs : ~Replicates(Decide27(n, hs, {}, {}))
-)\* a check "replicates" when it hands the replicator a task with at least one candidate node. (With overlapping
-\* rules the code as found keeps calling the replicator with an EMPTY candidate list: a holder remembered from
-\* an earlier rule does not lower the shortage of a later rule - a phantom shortage that copies nothing.)
-Replicates(d) == \E k \in 1..Len(d.tasks) : Len(d.tasks[k].nodes) > 0
-Quiet(hs) == \A n \in hs : LET d == Decide27(n, hs, {}, {}) IN ~Replicates(d) /\ d.del = "none"
-NoTasks(hs) == \A n \in hs : ~Replicates(Decide27(n, hs, {}, {}))
-.\* a check "replicates" when it hands the replicator a task with at least one candidate node. (With overlapping
-\* rules the code as found keeps calling the replicator with an EMPTY candidate list: a holder remembered from
-\* an earlier rule does not lower the shortage of a later rule - a phantom shortage that copies nothing.)
-Replicates(d) == \E k \in 1..Len(d.tasks) : Len(d.tasks[k].nodes) > 0
-Quiet(hs) == \A n \in hs : LET d == Decide27(n, hs, {}, {}) IN ~Replicates(d) /\ d.del = "none"
-NoTasks(hs) == \A n \in hs : ~Replicates(Decide27(n, hs, {}, {}))
-
-\* a check "replicates" when it hands the replicator a task with at least one candidate node. (With overlapping
-\* rules the code as found keeps calling the replicator with an EMPTY candidate list: a holder remembered from
-\* an earlier rule does not lower the shortage of a later rule - a phantom shortage that copies nothing.)
-Replicates(d) == \E k \in 1..Len(d.tasks) : Len(d.tasks[k].nodes) > 0
-Quiet(hs) == \A n \in hs : LET d == Decide27(n, hs, {}, {}) IN ~Replicates(d) /\ d.del = "none"
-NoTasks(hs) == \A n \in hs : ~Replicates(Decide27(n, hs, {}, {}))
- \* a check "replicates" when it hands the replicator a task with at least one candidate node. (With overlapping
-\* rules the code as found keeps calling the replicator with an EMPTY candidate list: a holder remembered from
-\* an earlier rule does not lower the shortage of a later rule - a phantom shortage that copies nothing.)
-Replicates(d) == \E k \in 1..Len(d.tasks) : Len(d.tasks[k].nodes) > 0
-Quiet(hs) == \A n \in hs : LET d == Decide27(n, hs, {}, {}) IN ~Replicates(d) /\ d.del = "none"
-NoTasks(hs) == \A n \in hs : ~Replicates(Decide27(n, hs, {}, {}))
- \* a check "replicates" when it hands the replicator a task with at least one candidate node. (With overlapping
-\* rules the code as found keeps calling the replicator with an EMPTY candidate list: a holder remembered from
-\* an earlier rule does not lower the shortage of a later rule - a phantom shortage that copies nothing.)
-Replicates(d) == \E k \in 1..Len(d.tasks) : Len(d.tasks[k].nodes) > 0
-Quiet(hs) == \A n \in hs : LET d == Decide27(n, hs, {}, {}) IN ~Replicates(d) /\ d.del = "none"
-NoTasks(hs) == \A n \in hs : ~Replicates(Decide27(n, hs, {}, {}))
- \* a check "replicates" when it hands the replicator a task with at least one candidate node. (With overlapping
-\* rules the code as found keeps calling the replicator with an EMPTY candidate list: a holder remembered from
-\* an earlier rule does not lower the shortage of a later rule - a phantom shortage that copies nothing.)
-Replicates(d) == \E k \in 1..Len(d.tasks) : Len(d.tasks[k].nodes) > 0
-Quiet(hs) == \A n \in hs : LET d == Decide27(n, hs, {}, {}) IN ~Replicates(d) /\ d.del = "none"
-NoTasks(hs) == \A n \in hs : ~Replicates(Decide27(n, hs, {}, {}))
-S\* a check "replicates" when it hands the replicator a task with at least one candidate node. (With overlapping
-\* rules the code as found keeps calling the replicator with an EMPTY candidate list: a holder remembered from
-\* an earlier rule does not lower the shortage of a later rule - a phantom shortage that copies nothing.)
-Replicates(d) == \E k \in 1..Len(d.tasks) : Len(d.tasks[k].nodes) > 0
-Quiet(hs) == \A n \in hs : LET d == Decide27(n, hs, {}, {}) IN ~Replicates(d) /\ d.del = "none"
-NoTasks(hs) == \A n \in hs : ~Replicates(Decide27(n, hs, {}, {}))
-a\* a check "replicates" when it hands the replicator a task with at least one candidate node. (With overlapping
-\* rules the code as found keeps calling the replicator with an EMPTY candidate list: a holder remembered from
-\* an earlier rule does not lower the shortage of a later rule - a phantom shortage that copies nothing.)
-Replicates(d) == \E k \in 1..Len(d.tasks) : Len(d.tasks[k].nodes) > 0
-Quiet(hs) == \A n \in hs : LET d == Decide27(n, hs, {}, {}) IN ~Replicates(d) /\ d.del = "none"
-NoTasks(hs) == \A n \in hs : ~Replicates(Decide27(n, hs, {}, {}))
-f\* a check "replicates" when it hands the replicator a task with at least one candidate node. (With overlapping
-\* rules the code as found keeps calling the replicator with an EMPTY candidate list: a holder remembered from
-\* an earlier rule does not lower the shortage of a later rule - a phantom shortage that copies nothing.)
-Replicates(d) == \E k \in 1..Len(d.tasks) : Len(d.tasks[k].nodes) > 0
-Quiet(hs) == \A n \in hs : LET d == Decide27(n, hs, {}, {}) IN ~Replicates(d) /\ d.del = "none"
-NoTasks(hs) == \A n \in hs : ~Replicates(Decide27(n, hs, {}, {}))
-e\* a check "replicates" when it hands the replicator a task with at least one candidate node. (With overlapping
-\* rules the code as found keeps calling the replicator with an EMPTY candidate list: a holder remembered from
-\* an earlier rule does not lower the shortage of a later rule - a phantom shortage that copies nothing.)
-Replicates(d) == \E k \in 1..Len(d.tasks) : Len(d.tasks[k].nodes) > 0
-Quiet(hs) == \A n \in hs : LET d == Decide27(n, hs, {}, {}) IN ~Replicates(d) /\ d.del = "none"
-NoTasks(hs) == \A n \in hs : ~Replicates(Decide27(n, hs, {}, {}))
-t\* a check "replicates" when it hands the replicator a task with at least one candidate node. (With overlapping
-\* rules the code as found keeps calling the replicator with an EMPTY candidate list: a holder remembered from
-\* an earlier rule does not lower the shortage of a later rule - a phantom shortage that copies nothing.)
-Replicates(d) == \E k \in 1..Len(d.tasks) : Len(d.tasks[k].nodes) > 0
-Quiet(hs) == \A n \in hs : LET d == Decide27(n, hs, {}, {}) IN ~Replicates(d) /\ d.del = "none"
-NoTasks(hs) == \A n \in hs : ~Replicates(Decide27(n, hs, {}, {}))
-y\* a check "replicates" when it hands the replicator a task with at least one candidate node. (With overlapping
-\* rules the code as found keeps calling the replicator with an EMPTY candidate list: a holder remembered from
-\* an earlier rule does not lower the shortage of a later rule - a phantom shortage that copies nothing.)
-Replicates(d) == \E k \in 1..Len(d.tasks) : Len(d.tasks[k].nodes) > 0
-Quiet(hs) == \A n \in hs : LET d == Decide27(n, hs, {}, {}) IN ~Replicates(d) /\ d.del = "none"
-NoTasks(hs) == \A n \in hs : ~Replicates(Decide27(n, hs, {}, {}))
- \* a check "replicates" when it hands the replicator a task with at least one candidate node. (With overlapping
-\* rules the code as found keeps calling the replicator with an EMPTY candidate list: a holder remembered from
-\* an earlier rule does not lower the shortage of a later rule - a phantom shortage that copies nothing.)
-Replicates(d) == \E k \in 1..Len(d.tasks) : Len(d.tasks[k].nodes) > 0
-Quiet(hs) == \A n \in hs : LET d == Decide27(n, hs, {}, {}) IN ~Replicates(d) /\ d.del = "none"
-NoTasks(hs) == \A n \in hs : ~Replicates(Decide27(n, hs, {}, {}))
-o\* a check "replicates" when it hands the replicator a task with at least one candidate node. (With overlapping
-\* rules the code as found keeps calling the replicator with an EMPTY candidate list: a holder remembered from
-\* an earlier rule does not lower the shortage of a later rule - a phantom shortage that copies nothing.)
-Replicates(d) == \E k \in 1..Len(d.tasks) : Len(d.tasks[k].nodes) > 0
-Quiet(hs) == \A n \in hs : LET d == Decide27(n, hs, {}, {}) IN ~Replicates(d) /\ d.del = "none"
-NoTasks(hs) == \A n \in hs : ~Replicates(Decide27(n, hs, {}, {}))
-f\* a check "replicates" when it hands the replicator a task with at least one candidate node. (With overlapping
-\* rules the code as found keeps calling the replicator with an EMPTY candidate list: a holder remembered from
-\* an earlier rule does not lower the shortage of a later rule - a phantom shortage that copies nothing.)
-Replicates(d) == \E k \in 1..Len(d.tasks) : Len(d.tasks[k].nodes) > 0
-Quiet(hs) == \A n \in hs : LET d == Decide27(n, hs, {}, {}) IN ~Replicates(d) /\ d.del = "none"
-NoTasks(hs) == \A n \in hs : ~Replicates(Decide27(n, hs, {}, {}))
- \* a check "replicates" when it hands the replicator a task with at least one candidate node. (With overlapping
-\* rules the code as found keeps calling the replicator with an EMPTY candidate list: a holder remembered from
-\* an earlier rule does not lower the shortage of a later rule - a phantom shortage that copies nothing.)
-Replicates(d) == \E k \in 1..Len(d.tasks) : Len(d.tasks[k].nodes) > 0
-Quiet(hs) == \A n \in hs : LET d == Decide27(n, hs, {}, {}) IN ~Replicates(d) /\ d.del = "none"
-NoTasks(hs) == \A n \in hs : ~Replicates(Decide27(n, hs, {}, {}))
-t\* a check "replicates" when it hands the replicator a task with at least one candidate node. (With overlapping
-\* rules the code as found keeps calling the replicator with an EMPTY candidate list: a holder remembered from
-\* an earlier rule does not lower the shortage of a later rule - a phantom shortage that copies nothing.)
-Replicates(d) == \E k \in 1..Len(d.tasks) : Len(d.tasks[k].nodes) > 0
-Quiet(hs) == \A n \in hs : LET d == Decide27(n, hs, {}, {}) IN ~Replicates(d) /\ d.del = "none"
-NoTasks(hs) == \A n \in hs : ~Replicates(Decide27(n, hs, {}, {}))
-h\* a check "replicates" when it hands the replicator a task with at least one candidate node. (With overlapping
-\* rules the code as found keeps calling the replicator with an EMPTY candidate list: a holder remembered from
-\* an earlier rule does not lower the shortage of a later rule - a phantom shortage that copies nothing.)
-Replicates(d) == \E k \in 1..Len(d.tasks) : Len(d.tasks[k].nodes) > 0
-Quiet(hs) == \A n \in hs : LET d == Decide27(n, hs, {}, {}) IN ~Replicates(d) /\ d.del = "none"
-NoTasks(hs) == \A n \in hs : ~Replicates(Decide27(n, hs, {}, {}))
-e\* a check "replicates" when it hands the replicator a task with at least one candidate node. (With overlapping
-\* rules the code as found keeps calling the replicator with an EMPTY candidate list: a holder remembered from
-\* an earlier rule does not lower the shortage of a later rule - a phantom shortage that copies nothing.)
-Replicates(d) == \E k \in 1..Len(d.tasks) : Len(d.tasks[k].nodes) > 0
-Quiet(hs) == \A n \in hs : LET d == Decide27(n, hs, {}, {}) IN ~Replicates(d) /\ d.del = "none"
-NoTasks(hs) == \A n \in hs : ~Replicates(Decide27(n, hs, {}, {}))
- \* a check "replicates" when it hands the replicator a task with at least one candidate node. (With overlapping
-\* rules the code as found keeps calling the replicator with an EMPTY candidate list: a holder remembered from
-\* an earlier rule does not lower the shortage of a later rule - a phantom shortage that copies nothing.)
-Replicates(d) == \E k \in 1..Len(d.tasks) : Len(d.tasks[k].nodes) > 0
-Quiet(hs) == \A n \in hs : LET d == Decide27(n, hs, {}, {}) IN ~Replicates(d) /\ d.del = "none"
-NoTasks(hs) == \A n \in hs : ~Replicates(Decide27(n, hs, {}, {}))
-r\* a check "replicates" when it hands the replicator a task with at least one candidate node. (With overlapping
-\* rules the code as found keeps calling the replicator with an EMPTY candidate list: a holder remembered from
-\* an earlier rule does not lower the shortage of a later rule - a phantom shortage that copies nothing.)
-Replicates(d) == \E k \in 1..Len(d.tasks) : Len(d.tasks[k].nodes) > 0
-Quiet(hs) == \A n \in hs : LET d == Decide27(n, hs, {}, {}) IN ~Replicates(d) /\ d.del = "none"
-NoTasks(hs) == \A n \in hs : ~Replicates(Decide27(n, hs, {}, {}))
-e\* a check "replicates" when it hands the replicator a task with at least one candidate node. (With overlapping
-\* rules the code as found keeps calling the replicator with an EMPTY candidate list: a holder remembered from
-\* an earlier rule does not lower the shortage of a later rule - a phantom shortage that copies nothing.)
-Replicates(d) == \E k \in 1..Len(d.tasks) : Len(d.tasks[k].nodes) > 0
-Quiet(hs) == \A n \in hs : LET d == Decide27(n, hs, {}, {}) IN ~Replicates(d) /\ d.del = "none"
-NoTasks(hs) == \A n \in hs : ~Replicates(Decide27(n, hs, {}, {}))
-p\* a check "replicates" when it hands the replicator a task with at least one candidate node. (With overlapping
-\* rules the code as found keeps calling the replicator with an EMPTY candidate list: a holder remembered from
-\* an earlier rule does not lower the shortage of a later rule - a phantom shortage that copies nothing.)
-Replicates(d) == \E k \in 1..Len(d.tasks) : Len(d.tasks[k].nodes) > 0
-Quiet(hs) == \A n \in hs : LET d == Decide27(n, hs, {}, {}) IN ~Replicates(d) /\ d.del = "none"
-NoTasks(hs) == \A n \in hs : ~Replicates(Decide27(n, hs, {}, {}))
-l\* a check "replicates" when it hands the replicator a task with at least one candidate node. (With overlapping
-\* rules the code as found keeps calling the replicator with an EMPTY candidate list: a holder remembered from
-\* an earlier rule does not lower the shortage of a later rule - a phantom shortage that copies nothing.)
-Replicates(d) == \E k \in 1..Len(d.tasks) : Len(d.tasks[k].nodes) > 0
-Quiet(hs) == \A n \in hs : LET d == Decide27(n, hs, {}, {}) IN ~Replicates(d) /\ d.del = "none"
-NoTasks(hs) == \A n \in hs : ~Replicates(Decide27(n, hs, {}, {}))
-i\* a check "replicates" when it hands the replicator a task with at least one candidate node. (With overlapping
-\* rules the code as found keeps calling the replicator with an EMPTY candidate list: a holder remembered from
-\* an earlier rule does not lower the shortage of a later rule - a phantom shortage that copies nothing.)
-Replicates(d) == \E k \in 1..Len(d.tasks) : Len(d.tasks[k].nodes) > 0
-Quiet(hs) == \A n \in hs : LET d == Decide27(n, hs, {}, {}) IN ~Replicates(d) /\ d.del = "none"
-NoTasks(hs) == \A n \in hs : ~Replicates(Decide27(n, hs, {}, {}))
-c\* a check "replicates" when it hands the replicator a task with at least one candidate node. (With overlapping
-\* rules the code as found keeps calling the replicator with an EMPTY candidate list: a holder remembered from
-\* an earlier rule does not lower the shortage of a later rule - a phantom shortage that copies nothing.)
-Replicates(d) == \E k \in 1..Len(d.tasks) : Len(d.tasks[k].nodes) > 0
-Quiet(hs) == \A n \in hs : LET d == Decide27(n, hs, {}, {}) IN ~Replicates(d) /\ d.del = "none"
-NoTasks(hs) == \A n \in hs : ~Replicates(Decide27(n, hs, {}, {}))
-a\* a check "replicates" when it hands the replicator a task with at least one candidate node. (With overlapping
-\* rules the code as found keeps calling the replicator with an EMPTY candidate list: a holder remembered from
-\* an earlier rule does not lower the shortage of a later rule - a phantom shortage that copies nothing.)
-Replicates(d) == \E k \in 1..Len(d.tasks) : Len(d.tasks[k].nodes) > 0
-Quiet(hs) == \A n \in hs : LET d == Decide27(n, hs, {}, {}) IN ~Replicates(d) /\ d.del = "none"
-NoTasks(hs) == \A n \in hs : ~Replicates(Decide27(n, hs, {}, {}))
-t\* a check "replicates" when it hands the replicator a task with at least one candidate node. (With overlapping
-\* rules the code as found keeps calling the replicator with an EMPTY candidate list: a holder remembered from
-\* an earlier rule does not lower the shortage of a later rule - a phantom shortage that copies nothing.)
-Replicates(d) == \E k \in 1..Len(d.tasks) : Len(d.tasks[k].nodes) > 0
-Quiet(hs) == \A n \in hs : LET d == Decide27(n, hs, {}, {}) IN ~Replicates(d) /\ d.del = "none"
-NoTasks(hs) == \A n \in hs : ~Replicates(Decide27(n, hs, {}, {}))
-o\* a check "replicates" when it hands the replicator a task with at least one candidate node. (With overlapping
-\* rules the code as found keeps calling the replicator with an EMPTY candidate list: a holder remembered from
-\* an earlier rule does not lower the shortage of a later rule - a phantom shortage that copies nothing.)
-Replicates(d) == \E k \in 1..Len(d.tasks) : Len(d.tasks[k].nodes) > 0
-Quiet(hs) == \A n \in hs : LET d == Decide27(n, hs, {}, {}) IN ~Replicates(d) /\ d.del = "none"
-NoTasks(hs) == \A n \in hs : ~Replicates(Decide27(n, hs, {}, {}))
-r\* a check "replicates" when it hands the replicator a task with at least one candidate node. (With overlapping
-\* rules the code as found keeps calling the replicator with an EMPTY candidate list: a holder remembered from
-\* an earlier rule does not lower the shortage of a later rule - a phantom shortage that copies nothing.)
-Replicates(d) == \E k \in 1..Len(d.tasks) : Len(d.tasks[k].nodes) > 0
-Quiet(hs) == \A n \in hs : LET d == Decide27(n, hs, {}, {}) IN ~Replicates(d) /\ d.del = "none"
-NoTasks(hs) == \A n \in hs : ~Replicates(Decide27(n, hs, {}, {}))
-:\* a check "replicates" when it hands the replicator a task with at least one candidate node. (With overlapping
-\* rules the code as found keeps calling the replicator with an EMPTY candidate list: a holder remembered from
-\* an earlier rule does not lower the shortage of a later rule - a phantom shortage that copies nothing.)
-Replicates(d) == \E k \in 1..Len(d.tasks) : Len(d.tasks[k].nodes) > 0
-Quiet(hs) == \A n \in hs : LET d == Decide27(n, hs, {}, {}) IN ~Replicates(d) /\ d.del = "none"
-NoTasks(hs) == \A n \in hs : ~Replicates(Decide27(n, hs, {}, {}))
- \* a check "replicates" when it hands the replicator a task with at least one candidate node. (With overlapping
-\* rules the code as found keeps calling the replicator with an EMPTY candidate list: a holder remembered from
-\* an earlier rule does not lower the shortage of a later rule - a phantom shortage that copies nothing.)
-Replicates(d) == \E k \in 1..Len(d.tasks) : Len(d.tasks[k].nodes) > 0
-Quiet(hs) == \A n \in hs : LET d == Decide27(n, hs, {}, {}) IN ~Replicates(d) /\ d.del = "none"
-NoTasks(hs) == \A n \in hs : ~Replicates(Decide27(n, hs, {}, {}))
-r\* a check "replicates" when it hands the replicator a task with at least one candidate node. (With overlapping
-\* rules the code as found keeps calling the replicator with an EMPTY candidate list: a holder remembered from
-\* an earlier rule does not lower the shortage of a later rule - a phantom shortage that copies nothing.)
-Replicates(d) == \E k \in 1..Len(d.tasks) : Len(d.tasks[k].nodes) > 0
-Quiet(hs) == \A n \in hs : LET d == Decide27(n, hs, {}, {}) IN ~Replicates(d) /\ d.del = "none"
-NoTasks(hs) == \A n \in hs : ~Replicates(Decide27(n, hs, {}, {}))
-e\* a check "replicates" when it hands the replicator a task with at least one candidate node. (With overlapping
-\* rules the code as found keeps calling the replicator with an EMPTY candidate list: a holder remembered from
-\* an earlier rule does not lower the shortage of a later rule - a phantom shortage that copies nothing.)
-Replicates(d) == \E k \in 1..Len(d.tasks) : Len(d.tasks[k].nodes) > 0
-Quiet(hs) == \A n \in hs : LET d == Decide27(n, hs, {}, {}) IN ~Replicates(d) /\ d.del = "none"
-NoTasks(hs) == \A n \in hs : ~Replicates(Decide27(n, hs, {}, {}))
-p\* a check "replicates" when it hands the replicator a task with at least one candidate node. (With overlapping
-\* rules the code as found keeps calling the replicator with an EMPTY candidate list: a holder remembered from
-\* an earlier rule does not lower the shortage of a later rule - a phantom shortage that copies nothing.)
-Replicates(d) == \E k \in 1..Len(d.tasks) : Len(d.tasks[k].nodes) > 0
-Quiet(hs) == \A n \in hs : LET d == Decide27(n, hs, {}, {}) IN ~Replicates(d) /\ d.del = "none"
-NoTasks(hs) == \A n \in hs : ~Replicates(Decide27(n, hs, {}, {}))
-o\* a check "replicates" when it hands the replicator a task with at least one candidate node. (With overlapping
-\* rules the code as found keeps calling the replicator with an EMPTY candidate list: a holder remembered from
-\* an earlier rule does not lower the shortage of a later rule - a phantom shortage that copies nothing.)
-Replicates(d) == \E k \in 1..Len(d.tasks) : Len(d.tasks[k].nodes) > 0
-Quiet(hs) == \A n \in hs : LET d == Decide27(n, hs, {}, {}) IN ~Replicates(d) /\ d.del = "none"
-NoTasks(hs) == \A n \in hs : ~Replicates(Decide27(n, hs, {}, {}))
-r\* a check "replicates" when it hands the replicator a task with at least one candidate node. (With overlapping
-\* rules the code as found keeps calling the replicator with an EMPTY candidate list: a holder remembered from
-\* an earlier rule does not lower the shortage of a later rule - a phantom shortage that copies nothing.)
-Replicates(d) == \E k \in 1..Len(d.tasks) : Len(d.tasks[k].nodes) > 0
-Quiet(hs) == \A n \in hs : LET d == Decide27(n, hs, {}, {}) IN ~Replicates(d) /\ d.del = "none"
-NoTasks(hs) == \A n \in hs : ~Replicates(Decide27(n, hs, {}, {}))
-t\* a check "replicates" when it hands the replicator a task with at least one candidate node. (With overlapping
-\* rules the code as found keeps calling the replicator with an EMPTY candidate list: a holder remembered from
-\* an earlier rule does not lower the shortage of a later rule - a phantom shortage that copies nothing.)
-Replicates(d) == \E k \in 1..Len(d.tasks) : Len(d.tasks[k].nodes) > 0
-Quiet(hs) == \A n \in hs : LET d == Decide27(n, hs, {}, {}) IN ~Replicates(d) /\ d.del = "none"
-NoTasks(hs) == \A n \in hs : ~Replicates(Decide27(n, hs, {}, {}))
-e\* a check "replicates" when it hands the replicator a task with at least one candidate node. (With overlapping
-\* rules the code as found keeps calling the replicator with an EMPTY candidate list: a holder remembered from
-\* an earlier rule does not lower the shortage of a later rule - a phantom shortage that copies nothing.)
-Replicates(d) == \E k \in 1..Len(d.tasks) : Len(d.tasks[k].nodes) > 0
-Quiet(hs) == \A n \in hs : LET d == Decide27(n, hs, {}, {}) IN ~Replicates(d) /\ d.del = "none"
-NoTasks(hs) == \A n \in hs : ~Replicates(Decide27(n, hs, {}, {}))
-d\* a check "replicates" when it hands the replicator a task with at least one candidate node. (With overlapping
-\* rules the code as found keeps calling the replicator with an EMPTY candidate list: a holder remembered from
-\* an earlier rule does not lower the shortage of a later rule - a phantom shortage that copies nothing.)
-Replicates(d) == \E k \in 1..Len(d.tasks) : Len(d.tasks[k].nodes) > 0
-Quiet(hs) == \A n \in hs : LET d == Decide27(n, hs, {}, {}) IN ~Replicates(d) /\ d.del = "none"
-NoTasks(hs) == \A n \in hs : ~Replicates(Decide27(n, hs, {}, {}))
- \* a check "replicates" when it hands the replicator a task with at least one candidate node. (With overlapping
-\* rules the code as found keeps calling the replicator with an EMPTY candidate list: a holder remembered from
-\* an earlier rule does not lower the shortage of a later rule - a phantom shortage that copies nothing.)
-Replicates(d) == \E k \in 1..Len(d.tasks) : Len(d.tasks[k].nodes) > 0
-Quiet(hs) == \A n \in hs : LET d == Decide27(n, hs, {}, {}) IN ~Replicates(d) /\ d.del = "none"
-NoTasks(hs) == \A n \in hs : ~Replicates(Decide27(n, hs, {}, {}))
-s\* a check "replicates" when it hands the replicator a task with at least one candidate node. (With overlapping
-\* rules the code as found keeps calling the replicator with an EMPTY candidate list: a holder remembered from
-\* an earlier rule does not lower the shortage of a later rule - a phantom shortage that copies nothing.)
-Replicates(d) == \E k \in 1..Len(d.tasks) : Len(d.tasks[k].nodes) > 0
-Quiet(hs) == \A n \in hs : LET d == Decide27(n, hs, {}, {}) IN ~Replicates(d) /\ d.del = "none"
-NoTasks(hs) == \A n \in hs : ~Replicates(Decide27(n, hs, {}, {}))
-u\* a check "replicates" when it hands the replicator a task with at least one candidate node. (With overlapping
-\* rules the code as found keeps calling the replicator with an EMPTY candidate list: a holder remembered from
-\* an earlier rule does not lower the shortage of a later rule - a phantom shortage that copies nothing.)
-Replicates(d) == \E k \in 1..Len(d.tasks) : Len(d.tasks[k].nodes) > 0
-Quiet(hs) == \A n \in hs : LET d == Decide27(n, hs, {}, {}) IN ~Replicates(d) /\ d.del = "none"
-NoTasks(hs) == \A n \in hs : ~Replicates(Decide27(n, hs, {}, {}))
-c\* a check "replicates" when it hands the replicator a task with at least one candidate node. (With overlapping
-\* rules the code as found keeps calling the replicator with an EMPTY candidate list: a holder remembered from
-\* an earlier rule does not lower the shortage of a later rule - a phantom shortage that copies nothing.)
-Replicates(d) == \E k \in 1..Len(d.tasks) : Len(d.tasks[k].nodes) > 0
-Quiet(hs) == \A n \in hs : LET d == Decide27(n, hs, {}, {}) IN ~Replicates(d) /\ d.del = "none"
-NoTasks(hs) == \A n \in hs : ~Replicates(Decide27(n, hs, {}, {}))
-c\* a check "replicates" when it hands the replicator a task with at least one candidate node. (With overlapping
-\* rules the code as found keeps calling the replicator with an EMPTY candidate list: a holder remembered from
-\* an earlier rule does not lower the shortage of a later rule - a phantom shortage that copies nothing.)
-Replicates(d) == \E k \in 1..Len(d.tasks) : Len(d.tasks[k].nodes) > 0
-Quiet(hs) == \A n \in hs : LET d == Decide27(n, hs, {}, {}) IN ~Replicates(d) /\ d.del = "none"
-NoTasks(hs) == \A n \in hs : ~Replicates(Decide27(n, hs, {}, {}))
-e\* a check "replicates" when it hands the replicator a task with at least one candidate node. (With overlapping
-\* rules the code as found keeps calling the replicator with an EMPTY candidate list: a holder remembered from
-\* an earlier rule does not lower the shortage of a later rule - a phantom shortage that copies nothing.)
-Replicates(d) == \E k \in 1..Len(d.tasks) : Len(d.tasks[k].nodes) > 0
-Quiet(hs) == \A n \in hs : LET d == Decide27(n, hs, {}, {}) IN ~Replicates(d) /\ d.del = "none"
-NoTasks(hs) == \A n \in hs : ~Replicates(Decide27(n, hs, {}, {}))
-s\* a check "replicates" when it hands the replicator a task with at least one candidate node. (With overlapping
-\* rules the code as found keeps calling the replicator with an EMPTY candidate list: a holder remembered from
-\* an earlier rule does not lower the shortage of a later rule - a phantom shortage that copies nothing.)
-Replicates(d) == \E k \in 1..Len(d.tasks) : Len(d.tasks[k].nodes) > 0
-Quiet(hs) == \A n \in hs : LET d == Decide27(n, hs, {}, {}) IN ~Replicates(d) /\ d.del = "none"
-NoTasks(hs) == \A n \in hs : ~Replicates(Decide27(n, hs, {}, {}))
-s\* a check "replicates" when it hands the replicator a task with at least one candidate node. (With overlapping
-\* rules the code as found keeps calling the replicator with an EMPTY candidate list: a holder remembered from
-\* an earlier rule does not lower the shortage of a later rule - a phantom shortage that copies nothing.)
-Replicates(d) == \E k \in 1..Len(d.tasks) : Len(d.tasks[k].nodes) > 0
-Quiet(hs) == \A n \in hs : LET d == Decide27(n, hs, {}, {}) IN ~Replicates(d) /\ d.del = "none"
-NoTasks(hs) == \A n \in hs : ~Replicates(Decide27(n, hs, {}, {}))
-e\* a check "replicates" when it hands the replicator a task with at least one candidate node. (With overlapping
-\* rules the code as found keeps calling the replicator with an EMPTY candidate list: a holder remembered from
-\* an earlier rule does not lower the shortage of a later rule - a phantom shortage that copies nothing.)
-Replicates(d) == \E k \in 1..Len(d.tasks) : Len(d.tasks[k].nodes) > 0
-Quiet(hs) == \A n \in hs : LET d == Decide27(n, hs, {}, {}) IN ~Replicates(d) /\ d.del = "none"
-NoTasks(hs) == \A n \in hs : ~Replicates(Decide27(n, hs, {}, {}))
-s\* a check "replicates" when it hands the replicator a task with at least one candidate node. (With overlapping
-\* rules the code as found keeps calling the replicator with an EMPTY candidate list: a holder remembered from
-\* an earlier rule does not lower the shortage of a later rule - a phantom shortage that copies nothing.)
-Replicates(d) == \E k \in 1..Len(d.tasks) : Len(d.tasks[k].nodes) > 0
-Quiet(hs) == \A n \in hs : LET d == Decide27(n, hs, {}, {}) IN ~Replicates(d) /\ d.del = "none"
-NoTasks(hs) == \A n \in hs : ~Replicates(Decide27(n, hs, {}, {}))
- \* a check "replicates" when it hands the replicator a task with at least one candidate node. (With overlapping
-\* rules the code as found keeps calling the replicator with an EMPTY candidate list: a holder remembered from
-\* an earlier rule does not lower the shortage of a later rule - a phantom shortage that copies nothing.)
-Replicates(d) == \E k \in 1..Len(d.tasks) : Len(d.tasks[k].nodes) > 0
-Quiet(hs) == \A n \in hs : LET d == Decide27(n, hs, {}, {}) IN ~Replicates(d) /\ d.del = "none"
-NoTasks(hs) == \A n \in hs : ~Replicates(Decide27(n, hs, {}, {}))
-<\* a check "replicates" when it hands the replicator a task with at least one candidate node. (With overlapping
-\* rules the code as found keeps calling the replicator with an EMPTY candidate list: a holder remembered from
-\* an earlier rule does not lower the shortage of a later rule - a phantom shortage that copies nothing.)
-Replicates(d) == \E k \in 1..Len(d.tasks) : Len(d.tasks[k].nodes) > 0
-Quiet(hs) == \A n \in hs : LET d == Decide27(n, hs, {}, {}) IN ~Replicates(d) /\ d.del = "none"
-NoTasks(hs) == \A n \in hs : ~Replicates(Decide27(n, hs, {}, {}))
-=\* a check "replicates" when it hands the replicator a task with at least one candidate node. (With overlapping
-\* rules the code as found keeps calling the replicator with an EMPTY candidate list: a holder remembered from
-\* an earlier rule does not lower the shortage of a later rule - a phantom shortage that copies nothing.)
-Replicates(d) == \E k \in 1..Len(d.tasks) : Len(d.tasks[k].nodes) > 0
-Quiet(hs) == \A n \in hs : LET d == Decide27(n, hs, {}, {}) IN ~Replicates(d) /\ d.del = "none"
-NoTasks(hs) == \A n \in hs : ~Replicates(Decide27(n, hs, {}, {}))
- \* a check "replicates" when it hands the replicator a task with at least one candidate node. (With overlapping
-\* rules the code as found keeps calling the replicator with an EMPTY candidate list: a holder remembered from
-\* an earlier rule does not lower the shortage of a later rule - a phantom shortage that copies nothing.)
-Replicates(d) == \E k \in 1..Len(d.tasks) : Len(d.tasks[k].nodes) > 0
-Quiet(hs) == \A n \in hs : LET d == Decide27(n, hs, {}, {}) IN ~Replicates(d) /\ d.del = "none"
-NoTasks(hs) == \A n \in hs : ~Replicates(Decide27(n, hs, {}, {}))
-r\* a check "replicates" when it hands the replicator a task with at least one candidate node. (With overlapping
-\* rules the code as found keeps calling the replicator with an EMPTY candidate list: a holder remembered from
-\* an earlier rule does not lower the shortage of a later rule - a phantom shortage that copies nothing.)
-Replicates(d) == \E k \in 1..Len(d.tasks) : Len(d.tasks[k].nodes) > 0
-Quiet(hs) == \A n \in hs : LET d == Decide27(n, hs, {}, {}) IN ~Replicates(d) /\ d.del = "none"
-NoTasks(hs) == \A n \in hs : ~Replicates(Decide27(n, hs, {}, {}))
-e\* a check "replicates" when it hands the replicator a task with at least one candidate node. (With overlapping
-\* rules the code as found keeps calling the replicator with an EMPTY candidate list: a holder remembered from
-\* an earlier rule does not lower the shortage of a later rule - a phantom shortage that copies nothing.)
-Replicates(d) == \E k \in 1..Len(d.tasks) : Len(d.tasks[k].nodes) > 0
-Quiet(hs) == \A n \in hs : LET d == Decide27(n, hs, {}, {}) IN ~Replicates(d) /\ d.del = "none"
-NoTasks(hs) == \A n \in hs : ~Replicates(Decide27(n, hs, {}, {}))
-q\* a check "replicates" when it hands the replicator a task with at least one candidate node. (With overlapping
-\* rules the code as found keeps calling the replicator with an EMPTY candidate list: a holder remembered from
-\* an earlier rule does not lower the shortage of a later rule - a phantom shortage that copies nothing.)
-Replicates(d) == \E k \in 1..Len(d.tasks) : Len(d.tasks[k].nodes) > 0
-Quiet(hs) == \A n \in hs : LET d == Decide27(n, hs, {}, {}) IN ~Replicates(d) /\ d.del = "none"
-NoTasks(hs) == \A n \in hs : ~Replicates(Decide27(n, hs, {}, {}))
-u\* a check "replicates" when it hands the replicator a task with at least one candidate node. (With overlapping
-\* rules the code as found keeps calling the replicator with an EMPTY candidate list: a holder remembered from
-\* an earlier rule does not lower the shortage of a later rule - a phantom shortage that copies nothing.)
-Replicates(d) == \E k \in 1..Len(d.tasks) : Len(d.tasks[k].nodes) > 0
-Quiet(hs) == \A n \in hs : LET d == Decide27(n, hs, {}, {}) IN ~Replicates(d) /\ d.del = "none"
-NoTasks(hs) == \A n \in hs : ~Replicates(Decide27(n, hs, {}, {}))
-e\* a check "replicates" when it hands the replicator a task with at least one candidate node. (With overlapping
-\* rules the code as found keeps calling the replicator with an EMPTY candidate list: a holder remembered from
-\* an earlier rule does not lower the shortage of a later rule - a phantom shortage that copies nothing.)
-Replicates(d) == \E k \in 1..Len(d.tasks) : Len(d.tasks[k].nodes) > 0
-Quiet(hs) == \A n \in hs : LET d == Decide27(n, hs, {}, {}) IN ~Replicates(d) /\ d.del = "none"
-NoTasks(hs) == \A n \in hs : ~Replicates(Decide27(n, hs, {}, {}))
-s\* a check "replicates" when it hands the replicator a task with at least one candidate node. (With overlapping
-\* rules the code as found keeps calling the replicator with an EMPTY candidate list: a holder remembered from
-\* an earlier rule does not lower the shortage of a later rule - a phantom shortage that copies nothing.)
-Replicates(d) == \E k \in 1..Len(d.tasks) : Len(d.tasks[k].nodes) > 0
-Quiet(hs) == \A n \in hs : LET d == Decide27(n, hs, {}, {}) IN ~Replicates(d) /\ d.del = "none"
-NoTasks(hs) == \A n \in hs : ~Replicates(Decide27(n, hs, {}, {}))
-t\* a check "replicates" when it hands the replicator a task with at least one candidate node. (With overlapping
-\* rules the code as found keeps calling the replicator with an EMPTY candidate list: a holder remembered from
-\* an earlier rule does not lower the shortage of a later rule - a phantom shortage that copies nothing.)
-Replicates(d) == \E k \in 1..Len(d.tasks) : Len(d.tasks[k].nodes) > 0
-Quiet(hs) == \A n \in hs : LET d == Decide27(n, hs, {}, {}) IN ~Replicates(d) /\ d.del = "none"
-NoTasks(hs) == \A n \in hs : ~Replicates(Decide27(n, hs, {}, {}))
-e\* a check "replicates" when it hands the replicator a task with at least one candidate node. (With overlapping
-\* rules the code as found keeps calling the replicator with an EMPTY candidate list: a holder remembered from
-\* an earlier rule does not lower the shortage of a later rule - a phantom shortage that copies nothing.)
-Replicates(d) == \E k \in 1..Len(d.tasks) : Len(d.tasks[k].nodes) > 0
-Quiet(hs) == \A n \in hs : LET d == Decide27(n, hs, {}, {}) IN ~Replicates(d) /\ d.del = "none"
-NoTasks(hs) == \A n \in hs : ~Replicates(Decide27(n, hs, {}, {}))
-d\* a check "replicates" when it hands the replicator a task with at least one candidate node. (With overlapping
-\* rules the code as found keeps calling the replicator with an EMPTY candidate list: a holder remembered from
-\* an earlier rule does not lower the shortage of a later rule - a phantom shortage that copies nothing.)
-Replicates(d) == \E k \in 1..Len(d.tasks) : Len(d.tasks[k].nodes) > 0
-Quiet(hs) == \A n \in hs : LET d == Decide27(n, hs, {}, {}) IN ~Replicates(d) /\ d.del = "none"
-NoTasks(hs) == \A n \in hs : ~Replicates(Decide27(n, hs, {}, {}))
-,\* a check "replicates" when it hands the replicator a task with at least one candidate node. (With overlapping
-\* rules the code as found keeps calling the replicator with an EMPTY candidate list: a holder remembered from
-\* an earlier rule does not lower the shortage of a later rule - a phantom shortage that copies nothing.)
-Replicates(d) == \E k \in 1..Len(d.tasks) : Len(d.tasks[k].nodes) > 0
-Quiet(hs) == \A n \in hs : LET d == Decide27(n, hs, {}, {}) IN ~Replicates(d) /\ d.del = "none"
-NoTasks(hs) == \A n \in hs : ~Replicates(Decide27(n, hs, {}, {}))
- \* a check "replicates" when it hands the replicator a task with at least one candidate node. (With overlapping
-\* rules the code as found keeps calling the replicator with an EMPTY candidate list: a holder remembered from
-\* an earlier rule does not lower the shortage of a later rule - a phantom shortage that copies nothing.)
-Replicates(d) == \E k \in 1..Len(d.tasks) : Len(d.tasks[k].nodes) > 0
-Quiet(hs) == \A n \in hs : LET d == Decide27(n, hs, {}, {}) IN ~Replicates(d) /\ d.del = "none"
-NoTasks(hs) == \A n \in hs : ~Replicates(Decide27(n, hs, {}, {}))
-o\* a check "replicates" when it hands the replicator a task with at least one candidate node. (With overlapping
-\* rules the code as found keeps calling the replicator with an EMPTY candidate list: a holder remembered from
-\* an earlier rule does not lower the shortage of a later rule - a phantom shortage that copies nothing.)
-Replicates(d) == \E k \in 1..Len(d.tasks) : Len(d.tasks[k].nodes) > 0
-Quiet(hs) == \A n \in hs : LET d == Decide27(n, hs, {}, {}) IN ~Replicates(d) /\ d.del = "none"
-NoTasks(hs) == \A n \in hs : ~Replicates(Decide27(n, hs, {}, {}))
-n\* a check "replicates" when it hands the replicator a task with at least one candidate node. (With overlapping
-\* rules the code as found keeps calling the replicator with an EMPTY candidate list: a holder remembered from
-\* an earlier rule does not lower the shortage of a later rule - a phantom shortage that copies nothing.)
-Replicates(d) == \E k \in 1..Len(d.tasks) : Len(d.tasks[k].nodes) > 0
-Quiet(hs) == \A n \in hs : LET d == Decide27(n, hs, {}, {}) IN ~Replicates(d) /\ d.del = "none"
-NoTasks(hs) == \A n \in hs : ~Replicates(Decide27(n, hs, {}, {}))
-l\* a check "replicates" when it hands the replicator a task with at least one candidate node. (With overlapping
-\* rules the code as found keeps calling the replicator with an EMPTY candidate list: a holder remembered from
-\* an earlier rule does not lower the shortage of a later rule - a phantom shortage that copies nothing.)
-Replicates(d) == \E k \in 1..Len(d.tasks) : Len(d.tasks[k].nodes) > 0
-Quiet(hs) == \A n \in hs : LET d == Decide27(n, hs, {}, {}) IN ~Replicates(d) /\ d.del = "none"
-NoTasks(hs) == \A n \in hs : ~Replicates(Decide27(n, hs, {}, {}))
-y\* a check "replicates" when it hands the replicator a task with at least one candidate node. (With overlapping
-\* rules the code as found keeps calling the replicator with an EMPTY candidate list: a holder remembered from
-\* an earlier rule does not lower the shortage of a later rule - a phantom shortage that copies nothing.)
-Replicates(d) == \E k \in 1..Len(d.tasks) : Len(d.tasks[k].nodes) > 0
-Quiet(hs) == \A n \in hs : LET d == Decide27(n, hs, {}, {}) IN ~Replicates(d) /\ d.del = "none"
-NoTasks(hs) == \A n \in hs : ~Replicates(Decide27(n, hs, {}, {}))
- \* a check "replicates" when it hands the replicator a task with at least one candidate node. (With overlapping
-\* rules the code as found keeps calling the replicator with an EMPTY candidate list: a holder remembered from
-\* an earlier rule does not lower the shortage of a later rule - a phantom shortage that copies nothing.)
-Replicates(d) == \E k \in 1..Len(d.tasks) : Len(d.tasks[k].nodes) > 0
-Quiet(hs) == \A n \in hs : LET d == Decide27(n, hs, {}, {}) IN ~Replicates(d) /\ d.del = "none"
-NoTasks(hs) == \A n \in hs : ~Replicates(Decide27(n, hs, {}, {}))
-f\* a check "replicates" when it hands the replicator a task with at least one candidate node. (With overlapping
-\* rules the code as found keeps calling the replicator with an EMPTY candidate list: a holder remembered from
-\* an earlier rule does not lower the shortage of a later rule - a phantom shortage that copies nothing.)
-Replicates(d) == \E k \in 1..Len(d.tasks) : Len(d.tasks[k].nodes) > 0
-Quiet(hs) == \A n \in hs : LET d == Decide27(n, hs, {}, {}) IN ~Replicates(d) /\ d.del = "none"
-NoTasks(hs) == \A n \in hs : ~Replicates(Decide27(n, hs, {}, {}))
-o\* a check "replicates" when it hands the replicator a task with at least one candidate node. (With overlapping
-\* rules the code as found keeps calling the replicator with an EMPTY candidate list: a holder remembered from
-\* an earlier rule does not lower the shortage of a later rule - a phantom shortage that copies nothing.)
-Replicates(d) == \E k \in 1..Len(d.tasks) : Len(d.tasks[k].nodes) > 0
-Quiet(hs) == \A n \in hs : LET d == Decide27(n, hs, {}, {}) IN ~Replicates(d) /\ d.del = "none"
-NoTasks(hs) == \A n \in hs : ~Replicates(Decide27(n, hs, {}, {}))
-r\* a check "replicates" when it hands the replicator a task with at least one candidate node. (With overlapping
-\* rules the code as found keeps calling the replicator with an EMPTY candidate list: a holder remembered from
-\* an earlier rule does not lower the shortage of a later rule - a phantom shortage that copies nothing.)
-Replicates(d) == \E k \in 1..Len(d.tasks) : Len(d.tasks[k].nodes) > 0
-Quiet(hs) == \A n \in hs : LET d == Decide27(n, hs, {}, {}) IN ~Replicates(d) /\ d.del = "none"
-NoTasks(hs) == \A n \in hs : ~Replicates(Decide27(n, hs, {}, {}))
- \* a check "replicates" when it hands the replicator a task with at least one candidate node. (With overlapping
-\* rules the code as found keeps calling the replicator with an EMPTY candidate list: a holder remembered from
-\* an earlier rule does not lower the shortage of a later rule - a phantom shortage that copies nothing.)
-Replicates(d) == \E k \in 1..Len(d.tasks) : Len(d.tasks[k].nodes) > 0
-Quiet(hs) == \A n \in hs : LET d == Decide27(n, hs, {}, {}) IN ~Replicates(d) /\ d.del = "none"
-NoTasks(hs) == \A n \in hs : ~Replicates(Decide27(n, hs, {}, {}))
-n\* a check "replicates" when it hands the replicator a task with at least one candidate node. (With overlapping
-\* rules the code as found keeps calling the replicator with an EMPTY candidate list: a holder remembered from
-\* an earlier rule does not lower the shortage of a later rule - a phantom shortage that copies nothing.)
-Replicates(d) == \E k \in 1..Len(d.tasks) : Len(d.tasks[k].nodes) > 0
-Quiet(hs) == \A n \in hs : LET d == Decide27(n, hs, {}, {}) IN ~Replicates(d) /\ d.del = "none"
-NoTasks(hs) == \A n \in hs : ~Replicates(Decide27(n, hs, {}, {}))
-o\* a check "replicates" when it hands the replicator a task with at least one candidate node. (With overlapping
-\* rules the code as found keeps calling the replicator with an EMPTY candidate list: a holder remembered from
-\* an earlier rule does not lower the shortage of a later rule - a phantom shortage that copies nothing.)
-Replicates(d) == \E k \in 1..Len(d.tasks) : Len(d.tasks[k].nodes) > 0
-Quiet(hs) == \A n \in hs : LET d == Decide27(n, hs, {}, {}) IN ~Replicates(d) /\ d.del = "none"
-NoTasks(hs) == \A n \in hs : ~Replicates(Decide27(n, hs, {}, {}))
-d\* a check "replicates" when it hands the replicator a task with at least one candidate node. (With overlapping
-\* rules the code as found keeps calling the replicator with an EMPTY candidate list: a holder remembered from
-\* an earlier rule does not lower the shortage of a later rule - a phantom shortage that copies nothing.)
-Replicates(d) == \E k \in 1..Len(d.tasks) : Len(d.tasks[k].nodes) > 0
-Quiet(hs) == \A n \in hs : LET d == Decide27(n, hs, {}, {}) IN ~Replicates(d) /\ d.del = "none"
-NoTasks(hs) == \A n \in hs : ~Replicates(Decide27(n, hs, {}, {}))
-e\* a check "replicates" when it hands the replicator a task with at least one candidate node. (With overlapping
-\* rules the code as found keeps calling the replicator with an EMPTY candidate list: a holder remembered from
-\* an earlier rule does not lower the shortage of a later rule - a phantom shortage that copies nothing.)
-Replicates(d) == \E k \in 1..Len(d.tasks) : Len(d.tasks[k].nodes) > 0
-Quiet(hs) == \A n \in hs : LET d == Decide27(n, hs, {}, {}) IN ~Replicates(d) /\ d.del = "none"
-NoTasks(hs) == \A n \in hs : ~Replicates(Decide27(n, hs, {}, {}))
-s\* a check "replicates" when it hands the replicator a task with at least one candidate node. (With overlapping
-\* rules the code as found keeps calling the replicator with an EMPTY candidate list: a holder remembered from
-\* an earlier rule does not lower the shortage of a later rule - a phantom shortage that copies nothing.)
-Replicates(d) == \E k \in 1..Len(d.tasks) : Len(d.tasks[k].nodes) > 0
-Quiet(hs) == \A n \in hs : LET d == Decide27(n, hs, {}, {}) IN ~Replicates(d) /\ d.del = "none"
-NoTasks(hs) == \A n \in hs : ~Replicates(Decide27(n, hs, {}, {}))
- \* a check "replicates" when it hands the replicator a task with at least one candidate node. (With overlapping
-\* rules the code as found keeps calling the replicator with an EMPTY candidate list: a holder remembered from
-\* an earlier rule does not lower the shortage of a later rule - a phantom shortage that copies nothing.)
-Replicates(d) == \E k \in 1..Len(d.tasks) : Len(d.tasks[k].nodes) > 0
-Quiet(hs) == \A n \in hs : LET d == Decide27(n, hs, {}, {}) IN ~Replicates(d) /\ d.del = "none"
-NoTasks(hs) == \A n \in hs : ~Replicates(Decide27(n, hs, {}, {}))
-t\* a check "replicates" when it hands the replicator a task with at least one candidate node. (With overlapping
-\* rules the code as found keeps calling the replicator with an EMPTY candidate list: a holder remembered from
-\* an earlier rule does not lower the shortage of a later rule - a phantom shortage that copies nothing.)
-Replicates(d) == \E k \in 1..Len(d.tasks) : Len(d.tasks[k].nodes) > 0
-Quiet(hs) == \A n \in hs : LET d == Decide27(n, hs, {}, {}) IN ~Replicates(d) /\ d.del = "none"
-NoTasks(hs) == \A n \in hs : ~Replicates(Decide27(n, hs, {}, {}))
-h\* a check "replicates" when it hands the replicator a task with at least one candidate node. (With overlapping
-\* rules the code as found keeps calling the replicator with an EMPTY candidate list: a holder remembered from
-\* an earlier rule does not lower the shortage of a later rule - a phantom shortage that copies nothing.)
-Replicates(d) == \E k \in 1..Len(d.tasks) : Len(d.tasks[k].nodes) > 0
-Quiet(hs) == \A n \in hs : LET d == Decide27(n, hs, {}, {}) IN ~Replicates(d) /\ d.del = "none"
-NoTasks(hs) == \A n \in hs : ~Replicates(Decide27(n, hs, {}, {}))
-a\* a check "replicates" when it hands the replicator a task with at least one candidate node. (With overlapping
-\* rules the code as found keeps calling the replicator with an EMPTY candidate list: a holder remembered from
-\* an earlier rule does not lower the shortage of a later rule - a phantom shortage that copies nothing.)
-Replicates(d) == \E k \in 1..Len(d.tasks) : Len(d.tasks[k].nodes) > 0
-Quiet(hs) == \A n \in hs : LET d == Decide27(n, hs, {}, {}) IN ~Replicates(d) /\ d.del = "none"
-NoTasks(hs) == \A n \in hs : ~Replicates(Decide27(n, hs, {}, {}))
-t\* a check "replicates" when it hands the replicator a task with at least one candidate node. (With overlapping
-\* rules the code as found keeps calling the replicator with an EMPTY candidate list: a holder remembered from
-\* an earlier rule does not lower the shortage of a later rule - a phantom shortage that copies nothing.)
-Replicates(d) == \E k \in 1..Len(d.tasks) : Len(d.tasks[k].nodes) > 0
-Quiet(hs) == \A n \in hs : LET d == Decide27(n, hs, {}, {}) IN ~Replicates(d) /\ d.del = "none"
-NoTasks(hs) == \A n \in hs : ~Replicates(Decide27(n, hs, {}, {}))
- \* a check "replicates" when it hands the replicator a task with at least one candidate node. (With overlapping
-\* rules the code as found keeps calling the replicator with an EMPTY candidate list: a holder remembered from
-\* an earlier rule does not lower the shortage of a later rule - a phantom shortage that copies nothing.)
-Replicates(d) == \E k \in 1..Len(d.tasks) : Len(d.tasks[k].nodes) > 0
-Quiet(hs) == \A n \in hs : LET d == Decide27(n, hs, {}, {}) IN ~Replicates(d) /\ d.del = "none"
-NoTasks(hs) == \A n \in hs : ~Replicates(Decide27(n, hs, {}, {}))
-s\* a check "replicates" when it hands the replicator a task with at least one candidate node. (With overlapping
-\* rules the code as found keeps calling the replicator with an EMPTY candidate list: a holder remembered from
-\* an earlier rule does not lower the shortage of a later rule - a phantom shortage that copies nothing.)
-Replicates(d) == \E k \in 1..Len(d.tasks) : Len(d.tasks[k].nodes) > 0
-Quiet(hs) == \A n \in hs : LET d == Decide27(n, hs, {}, {}) IN ~Replicates(d) /\ d.del = "none"
-NoTasks(hs) == \A n \in hs : ~Replicates(Decide27(n, hs, {}, {}))
-t\* a check "replicates" when it hands the replicator a task with at least one candidate node. (With overlapping
-\* rules the code as found keeps calling the replicator with an EMPTY candidate list: a holder remembered from
-\* an earlier rule does not lower the shortage of a later rule - a phantom shortage that copies nothing.)
-Replicates(d) == \E k \in 1..Len(d.tasks) : Len(d.tasks[k].nodes) > 0
-Quiet(hs) == \A n \in hs : LET d == Decide27(n, hs, {}, {}) IN ~Replicates(d) /\ d.del = "none"
-NoTasks(hs) == \A n \in hs : ~Replicates(Decide27(n, hs, {}, {}))
-o\* a check "replicates" when it hands the replicator a task with at least one candidate node. (With overlapping
-\* rules the code as found keeps calling the replicator with an EMPTY candidate list: a holder remembered from
-\* an earlier rule does not lower the shortage of a later rule - a phantom shortage that copies nothing.)
-Replicates(d) == \E k \in 1..Len(d.tasks) : Len(d.tasks[k].nodes) > 0
-Quiet(hs) == \A n \in hs : LET d == Decide27(n, hs, {}, {}) IN ~Replicates(d) /\ d.del = "none"
-NoTasks(hs) == \A n \in hs : ~Replicates(Decide27(n, hs, {}, {}))
-r\* a check "replicates" when it hands the replicator a task with at least one candidate node. (With overlapping
-\* rules the code as found keeps calling the replicator with an EMPTY candidate list: a holder remembered from
-\* an earlier rule does not lower the shortage of a later rule - a phantom shortage that copies nothing.)
-Replicates(d) == \E k \in 1..Len(d.tasks) : Len(d.tasks[k].nodes) > 0
-Quiet(hs) == \A n \in hs : LET d == Decide27(n, hs, {}, {}) IN ~Replicates(d) /\ d.del = "none"
-NoTasks(hs) == \A n \in hs : ~Replicates(Decide27(n, hs, {}, {}))
-e\* a check "replicates" when it hands the replicator a task with at least one candidate node. (With overlapping
-\* rules the code as found keeps calling the replicator with an EMPTY candidate list: a holder remembered from
-\* an earlier rule does not lower the shortage of a later rule - a phantom shortage that copies nothing.)
-Replicates(d) == \E k \in 1..Len(d.tasks) : Len(d.tasks[k].nodes) > 0
-Quiet(hs) == \A n \in hs : LET d == Decide27(n, hs, {}, {}) IN ~Replicates(d) /\ d.del = "none"
-NoTasks(hs) == \A n \in hs : ~Replicates(Decide27(n, hs, {}, {}))
-d\* a check "replicates" when it hands the replicator a task with at least one candidate node. (With overlapping
-\* rules the code as found keeps calling the replicator with an EMPTY candidate list: a holder remembered from
-\* an earlier rule does not lower the shortage of a later rule - a phantom shortage that copies nothing.)
-Replicates(d) == \E k \in 1..Len(d.tasks) : Len(d.tasks[k].nodes) > 0
-Quiet(hs) == \A n \in hs : LET d == Decide27(n, hs, {}, {}) IN ~Replicates(d) /\ d.del = "none"
-NoTasks(hs) == \A n \in hs : ~Replicates(Decide27(n, hs, {}, {}))
- \* a check "replicates" when it hands the replicator a task with at least one candidate node. (With overlapping
-\* rules the code as found keeps calling the replicator with an EMPTY candidate list: a holder remembered from
-\* an earlier rule does not lower the shortage of a later rule - a phantom shortage that copies nothing.)
-Replicates(d) == \E k \in 1..Len(d.tasks) : Len(d.tasks[k].nodes) > 0
-Quiet(hs) == \A n \in hs : LET d == Decide27(n, hs, {}, {}) IN ~Replicates(d) /\ d.del = "none"
-NoTasks(hs) == \A n \in hs : ~Replicates(Decide27(n, hs, {}, {}))
-(\* a check "replicates" when it hands the replicator a task with at least one candidate node. (With overlapping
-\* rules the code as found keeps calling the replicator with an EMPTY candidate list: a holder remembered from
-\* an earlier rule does not lower the shortage of a later rule - a phantom shortage that copies nothing.)
-Replicates(d) == \E k \in 1..Len(d.tasks) : Len(d.tasks[k].nodes) > 0
-Quiet(hs) == \A n \in hs : LET d == Decide27(n, hs, {}, {}) IN ~Replicates(d) /\ d.del = "none"
-NoTasks(hs) == \A n \in hs : ~Replicates(Decide27(n, hs, {}, {}))
-T\* a check "replicates" when it hands the replicator a task with at least one candidate node. (With overlapping
-\* rules the code as found keeps calling the replicator with an EMPTY candidate list: a holder remembered from
-\* an earlier rule does not lower the shortage of a later rule - a phantom shortage that copies nothing.)
-Replicates(d) == \E k \in 1..Len(d.tasks) : Len(d.tasks[k].nodes) > 0
-Quiet(hs) == \A n \in hs : LET d == Decide27(n, hs, {}, {}) IN ~Replicates(d) /\ d.del = "none"
-NoTasks(hs) == \A n \in hs : ~Replicates(Decide27(n, hs, {}, {}))
-a\* a check "replicates" when it hands the replicator a task with at least one candidate node. (With overlapping
-\* rules the code as found keeps calling the replicator with an EMPTY candidate list: a holder remembered from
-\* an earlier rule does not lower the shortage of a later rule - a phantom shortage that copies nothing.)
-Replicates(d) == \E k \in 1..Len(d.tasks) : Len(d.tasks[k].nodes) > 0
-Quiet(hs) == \A n \in hs : LET d == Decide27(n, hs, {}, {}) IN ~Replicates(d) /\ d.del = "none"
-NoTasks(hs) == \A n \in hs : ~Replicates(Decide27(n, hs, {}, {}))
-s\* a check "replicates" when it hands the replicator a task with at least one candidate node. (With overlapping
-\* rules the code as found keeps calling the replicator with an EMPTY candidate list: a holder remembered from
-\* an earlier rule does not lower the shortage of a later rule - a phantom shortage that copies nothing.)
-Replicates(d) == \E k \in 1..Len(d.tasks) : Len(d.tasks[k].nodes) > 0
-Quiet(hs) == \A n \in hs : LET d == Decide27(n, hs, {}, {}) IN ~Replicates(d) /\ d.del = "none"
-NoTasks(hs) == \A n \in hs : ~Replicates(Decide27(n, hs, {}, {}))
-k\* a check "replicates" when it hands the replicator a task with at least one candidate node. (With overlapping
-\* rules the code as found keeps calling the replicator with an EMPTY candidate list: a holder remembered from
-\* an earlier rule does not lower the shortage of a later rule - a phantom shortage that copies nothing.)
-Replicates(d) == \E k \in 1..Len(d.tasks) : Len(d.tasks[k].nodes) > 0
-Quiet(hs) == \A n \in hs : LET d == Decide27(n, hs, {}, {}) IN ~Replicates(d) /\ d.del = "none"
-NoTasks(hs) == \A n \in hs : ~Replicates(Decide27(n, hs, {}, {}))
-O\* a check "replicates" when it hands the replicator a task with at least one candidate node. (With overlapping
-\* rules the code as found keeps calling the replicator with an EMPTY candidate list: a holder remembered from
-\* an earlier rule does not lower the shortage of a later rule - a phantom shortage that copies nothing.)
-Replicates(d) == \E k \in 1..Len(d.tasks) : Len(d.tasks[k].nodes) > 0
-Quiet(hs) == \A n \in hs : LET d == Decide27(n, hs, {}, {}) IN ~Replicates(d) /\ d.del = "none"
-NoTasks(hs) == \A n \in hs : ~Replicates(Decide27(n, hs, {}, {}))
-K\* a check "replicates" when it hands the replicator a task with at least one candidate node. (With overlapping
-\* rules the code as found keeps calling the replicator with an EMPTY candidate list: a holder remembered from
-\* an earlier rule does not lower the shortage of a later rule - a phantom shortage that copies nothing.)
-Replicates(d) == \E k \in 1..Len(d.tasks) : Len(d.tasks[k].nodes) > 0
-Quiet(hs) == \A n \in hs : LET d == Decide27(n, hs, {}, {}) IN ~Replicates(d) /\ d.del = "none"
-NoTasks(hs) == \A n \in hs : ~Replicates(Decide27(n, hs, {}, {}))
-)\* a check "replicates" when it hands the replicator a task with at least one candidate node. (With overlapping
-\* rules the code as found keeps calling the replicator with an EMPTY candidate list: a holder remembered from
-\* an earlier rule does not lower the shortage of a later rule - a phantom shortage that copies nothing.)
-Replicates(d) == \E k \in 1..Len(d.tasks) : Len(d.tasks[k].nodes) > 0
-Quiet(hs) == \A n \in hs : LET d == Decide27(n, hs, {}, {}) IN ~Replicates(d) /\ d.del = "none"
-NoTasks(hs) == \A n \in hs : ~Replicates(Decide27(n, hs, {}, {}))
-.\* a check "replicates" when it hands the replicator a task with at least one candidate node. (With overlapping
-\* rules the code as found keeps calling the replicator with an EMPTY candidate list: a holder remembered from
-\* an earlier rule does not lower the shortage of a later rule - a phantom shortage that copies nothing.)
-Replicates(d) == \E k \in 1..Len(d.tasks) : Len(d.tasks[k].nodes) > 0
-Quiet(hs) == \A n \in hs : LET d == Decide27(n, hs, {}, {}) IN ~Replicates(d) /\ d.del = "none"
-NoTasks(hs) == \A n \in hs : ~Replicates(Decide27(n, hs, {}, {}))
- \* a check "replicates" when it hands the replicator a task with at least one candidate node. (With overlapping
-\* rules the code as found keeps calling the replicator with an EMPTY candidate list: a holder remembered from
-\* an earlier rule does not lower the shortage of a later rule - a phantom shortage that copies nothing.)
-Replicates(d) == \E k \in 1..Len(d.tasks) : Len(d.tasks[k].nodes) > 0
-Quiet(hs) == \A n \in hs : LET d == Decide27(n, hs, {}, {}) IN ~Replicates(d) /\ d.del = "none"
-NoTasks(hs) == \A n \in hs : ~Replicates(Decide27(n, hs, {}, {}))
- \* a check "replicates" when it hands the replicator a task with at least one candidate node. (With overlapping
-\* rules the code as found keeps calling the replicator with an EMPTY candidate list: a holder remembered from
-\* an earlier rule does not lower the shortage of a later rule - a phantom shortage that copies nothing.)
-Replicates(d) == \E k \in 1..Len(d.tasks) : Len(d.tasks[k].nodes) > 0
-Quiet(hs) == \A n \in hs : LET d == Decide27(n, hs, {}, {}) IN ~Replicates(d) /\ d.del = "none"
-NoTasks(hs) == \A n \in hs : ~Replicates(Decide27(n, hs, {}, {}))
- \* a check "replicates" when it hands the replicator a task with at least one candidate node. (With overlapping
-\* rules the code as found keeps calling the replicator with an EMPTY candidate list: a holder remembered from
-\* an earlier rule does not lower the shortage of a later rule - a phantom shortage that copies nothing.)
-Replicates(d) == \E k \in 1..Len(d.tasks) : Len(d.tasks[k].nodes) > 0
-Quiet(hs) == \A n \in hs : LET d == Decide27(n, hs, {}, {}) IN ~Replicates(d) /\ d.del = "none"
-NoTasks(hs) == \A n \in hs : ~Replicates(Decide27(n, hs, {}, {}))
- \* a check "replicates" when it hands the replicator a task with at least one candidate node. (With overlapping
-\* rules the code as found keeps calling the replicator with an EMPTY candidate list: a holder remembered from
-\* an earlier rule does not lower the shortage of a later rule - a phantom shortage that copies nothing.)
-Replicates(d) == \E k \in 1..Len(d.tasks) : Len(d.tasks[k].nodes) > 0
-Quiet(hs) == \A n \in hs : LET d == Decide27(n, hs, {}, {}) IN ~Replicates(d) /\ d.del = "none"
-NoTasks(hs) == \A n \in hs : ~Replicates(Decide27(n, hs, {}, {}))
- \* a check "replicates" when it hands the replicator a task with at least one candidate node. (With overlapping
-\* rules the code as found keeps calling the replicator with an EMPTY candidate list: a holder remembered from
-\* an earlier rule does not lower the shortage of a later rule - a phantom shortage that copies nothing.)
-Replicates(d) == \E k \in 1..Len(d.tasks) : Len(d.tasks[k].nodes) > 0
-Quiet(hs) == \A n \in hs : LET d == Decide27(n, hs, {}, {}) IN ~Replicates(d) /\ d.del = "none"
-NoTasks(hs) == \A n \in hs : ~Replicates(Decide27(n, hs, {}, {}))
- \* a check "replicates" when it hands the replicator a task with at least one candidate node. (With overlapping
-\* rules the code as found keeps calling the replicator with an EMPTY candidate list: a holder remembered from
-\* an earlier rule does not lower the shortage of a later rule - a phantom shortage that copies nothing.)
-Replicates(d) == \E k \in 1..Len(d.tasks) : Len(d.tasks[k].nodes) > 0
-Quiet(hs) == \A n \in hs : LET d == Decide27(n, hs, {}, {}) IN ~Replicates(d) /\ d.del = "none"
-NoTasks(hs) == \A n \in hs : ~Replicates(Decide27(n, hs, {}, {}))
- \* a check "replicates" when it hands the replicator a task with at least one candidate node. (With overlapping
-\* rules the code as found keeps calling the replicator with an EMPTY candidate list: a holder remembered from
-\* an earlier rule does not lower the shortage of a later rule - a phantom shortage that copies nothing.)
-Replicates(d) == \E k \in 1..Len(d.tasks) : Len(d.tasks[k].nodes) > 0
-Quiet(hs) == \A n \in hs : LET d == Decide27(n, hs, {}, {}) IN ~Replicates(d) /\ d.del = "none"
-NoTasks(hs) == \A n \in hs : ~Replicates(Decide27(n, hs, {}, {}))
-*\* a check "replicates" when it hands the replicator a task with at least one candidate node. (With overlapping
-\* rules the code as found keeps calling the replicator with an EMPTY candidate list: a holder remembered from
-\* an earlier rule does not lower the shortage of a later rule - a phantom shortage that copies nothing.)
-Replicates(d) == \E k \in 1..Len(d.tasks) : Len(d.tasks[k].nodes) > 0
-Quiet(hs) == \A n \in hs : LET d == Decide27(n, hs, {}, {}) IN ~Replicates(d) /\ d.del = "none"
-NoTasks(hs) == \A n \in hs : ~Replicates(Decide27(n, hs, {}, {}))
-)\* a check "replicates" when it hands the replicator a task with at least one candidate node. (With overlapping
-\* rules the code as found keeps calling the replicator with an EMPTY candidate list: a holder remembered from
-\* an earlier rule does not lower the shortage of a later rule - a phantom shortage that copies nothing.)
-Replicates(d) == \E k \in 1..Len(d.tasks) : Len(d.tasks[k].nodes) > 0
-Quiet(hs) == \A n \in hs : LET d == Decide27(n, hs, {}, {}) IN ~Replicates(d) /\ d.del = "none"
-NoTasks(hs) == \A n \in hs : ~Replicates(Decide27(n, hs, {}, {}))
-
-\* a check "replicates" when it hands the replicator a task with at least one candidate node. (With overlapping
-\* rules the code as found keeps calling the replicator with an EMPTY candidate list: a holder remembered from
-\* an earlier rule does not lower the shortage of a later rule - a phantom shortage that copies nothing.)
-Replicates(d) == \E k \in 1..Len(d.tasks) : Len(d.tasks[k].nodes) > 0
-Quiet(hs) == \A n \in hs : LET d == Decide27(n, hs, {}, {}) IN ~Replicates(d) /\ d.del = "none"
-NoTasks(hs) == \A n \in hs : ~Replicates(Decide27(n, hs, {}, {}))
-E\* a check "replicates" when it hands the replicator a task with at least one candidate node. (With overlapping
-\* rules the code as found keeps calling the replicator with an EMPTY candidate list: a holder remembered from
-\* an earlier rule does not lower the shortage of a later rule - a phantom shortage that copies nothing.)
-Replicates(d) == \E k \in 1..Len(d.tasks) : Len(d.tasks[k].nodes) > 0
-Quiet(hs) == \A n \in hs : LET d == Decide27(n, hs, {}, {}) IN ~Replicates(d) /\ d.del = "none"
-NoTasks(hs) == \A n \in hs : ~Replicates(Decide27(n, hs, {}, {}))
-X\* a check "replicates" when it hands the replicator a task with at least one candidate node. (With overlapping
-\* rules the code as found keeps calling the replicator with an EMPTY candidate list: a holder remembered from
-\* an earlier rule does not lower the shortage of a later rule - a phantom shortage that copies nothing.)
-Replicates(d) == \E k \in 1..Len(d.tasks) : Len(d.tasks[k].nodes) > 0
-Quiet(hs) == \A n \in hs : LET d == Decide27(n, hs, {}, {}) IN ~Replicates(d) /\ d.del = "none"
-NoTasks(hs) == \A n \in hs : ~Replicates(Decide27(n, hs, {}, {}))
-T\* a check "replicates" when it hands the replicator a task with at least one candidate node. (With overlapping
-\* rules the code as found keeps calling the replicator with an EMPTY candidate list: a holder remembered from
-\* an earlier rule does not lower the shortage of a later rule - a phantom shortage that copies nothing.)
-Replicates(d) == \E k \in 1..Len(d.tasks) : Len(d.tasks[k].nodes) > 0
-Quiet(hs) == \A n \in hs : LET d == Decide27(n, hs, {}, {}) IN ~Replicates(d) /\ d.del = "none"
-NoTasks(hs) == \A n \in hs : ~Replicates(Decide27(n, hs, {}, {}))
-E\* a check "replicates" when it hands the replicator a task with at least one candidate node. (With overlapping
-\* rules the code as found keeps calling the replicator with an EMPTY candidate list: a holder remembered from
-\* an earlier rule does not lower the shortage of a later rule - a phantom shortage that copies nothing.)
-Replicates(d) == \E k \in 1..Len(d.tasks) : Len(d.tasks[k].nodes) > 0
-Quiet(hs) == \A n \in hs : LET d == Decide27(n, hs, {}, {}) IN ~Replicates(d) /\ d.del = "none"
-NoTasks(hs) == \A n \in hs : ~Replicates(Decide27(n, hs, {}, {}))
-N\* a check "replicates" when it hands the replicator a task with at least one candidate node. (With overlapping
-\* rules the code as found keeps calling the replicator with an EMPTY candidate list: a holder remembered from
-\* an earlier rule does not lower the shortage of a later rule - a phantom shortage that copies nothing.)
-Replicates(d) == \E k \in 1..Len(d.tasks) : Len(d.tasks[k].nodes) > 0
-Quiet(hs) == \A n \in hs : LET d == Decide27(n, hs, {}, {}) IN ~Replicates(d) /\ d.del = "none"
-NoTasks(hs) == \A n \in hs : ~Replicates(Decide27(n, hs, {}, {}))
-D\* a check "replicates" when it hands the replicator a task with at least one candidate node. (With overlapping
-\* rules the code as found keeps calling the replicator with an EMPTY candidate list: a holder remembered from
-\* an earlier rule does not lower the shortage of a later rule - a phantom shortage that copies nothing.)
-Replicates(d) == \E k \in 1..Len(d.tasks) : Len(d.tasks[k].nodes) > 0
-Quiet(hs) == \A n \in hs : LET d == Decide27(n, hs, {}, {}) IN ~Replicates(d) /\ d.del = "none"
-NoTasks(hs) == \A n \in hs : ~Replicates(Decide27(n, hs, {}, {}))
-S\* a check "replicates" when it hands the replicator a task with at least one candidate node. (With overlapping
-\* rules the code as found keeps calling the replicator with an EMPTY candidate list: a holder remembered from
-\* an earlier rule does not lower the shortage of a later rule - a phantom shortage that copies nothing.)
-Replicates(d) == \E k \in 1..Len(d.tasks) : Len(d.tasks[k].nodes) > 0
-Quiet(hs) == \A n \in hs : LET d == Decide27(n, hs, {}, {}) IN ~Replicates(d) /\ d.del = "none"
-NoTasks(hs) == \A n \in hs : ~Replicates(Decide27(n, hs, {}, {}))
- \* a check "replicates" when it hands the replicator a task with at least one candidate node. (With overlapping
-\* rules the code as found keeps calling the replicator with an EMPTY candidate list: a holder remembered from
-\* an earlier rule does not lower the shortage of a later rule - a phantom shortage that copies nothing.)
-Replicates(d) == \E k \in 1..Len(d.tasks) : Len(d.tasks[k].nodes) > 0
-Quiet(hs) == \A n \in hs : LET d == Decide27(n, hs, {}, {}) IN ~Replicates(d) /\ d.del = "none"
-NoTasks(hs) == \A n \in hs : ~Replicates(Decide27(n, hs, {}, {}))
-P\* a check "replicates" when it hands the replicator a task with at least one candidate node. (With overlapping
-\* rules the code as found keeps calling the replicator with an EMPTY candidate list: a holder remembered from
-\* an earlier rule does not lower the shortage of a later rule - a phantom shortage that copies nothing.)
-Replicates(d) == \E k \in 1..Len(d.tasks) : Len(d.tasks[k].nodes) > 0
-Quiet(hs) == \A n \in hs : LET d == Decide27(n, hs, {}, {}) IN ~Replicates(d) /\ d.del = "none"
-NoTasks(hs) == \A n \in hs : ~Replicates(Decide27(n, hs, {}, {}))
-o\* a check "replicates" when it hands the replicator a task with at least one candidate node. (With overlapping
-\* rules the code as found keeps calling the replicator with an EMPTY candidate list: a holder remembered from
-\* an earlier rule does not lower the shortage of a later rule - a phantom shortage that copies nothing.)
-Replicates(d) == \E k \in 1..Len(d.tasks) : Len(d.tasks[k].nodes) > 0
-Quiet(hs) == \A n \in hs : LET d == Decide27(n, hs, {}, {}) IN ~Replicates(d) /\ d.del = "none"
-NoTasks(hs) == \A n \in hs : ~Replicates(Decide27(n, hs, {}, {}))
-l\* a check "replicates" when it hands the replicator a task with at least one candidate node. (With overlapping
-\* rules the code as found keeps calling the replicator with an EMPTY candidate list: a holder remembered from
-\* an earlier rule does not lower the shortage of a later rule - a phantom shortage that copies nothing.)
-Replicates(d) == \E k \in 1..Len(d.tasks) : Len(d.tasks[k].nodes) > 0
-Quiet(hs) == \A n \in hs : LET d == Decide27(n, hs, {}, {}) IN ~Replicates(d) /\ d.del = "none"
-NoTasks(hs) == \A n \in hs : ~Replicates(Decide27(n, hs, {}, {}))
-i\* a check "replicates" when it hands the replicator a task with at least one candidate node. (With overlapping
-\* rules the code as found keeps calling the replicator with an EMPTY candidate list: a holder remembered from
-\* an earlier rule does not lower the shortage of a later rule - a phantom shortage that copies nothing.)
-Replicates(d) == \E k \in 1..Len(d.tasks) : Len(d.tasks[k].nodes) > 0
-Quiet(hs) == \A n \in hs : LET d == Decide27(n, hs, {}, {}) IN ~Replicates(d) /\ d.del = "none"
-NoTasks(hs) == \A n \in hs : ~Replicates(Decide27(n, hs, {}, {}))
-c\* a check "replicates" when it hands the replicator a task with at least one candidate node. (With overlapping
-\* rules the code as found keeps calling the replicator with an EMPTY candidate list: a holder remembered from
-\* an earlier rule does not lower the shortage of a later rule - a phantom shortage that copies nothing.)
-Replicates(d) == \E k \in 1..Len(d.tasks) : Len(d.tasks[k].nodes) > 0
-Quiet(hs) == \A n \in hs : LET d == Decide27(n, hs, {}, {}) IN ~Replicates(d) /\ d.del = "none"
-NoTasks(hs) == \A n \in hs : ~Replicates(Decide27(n, hs, {}, {}))
-e\* a check "replicates" when it hands the replicator a task with at least one candidate node. (With overlapping
-\* rules the code as found keeps calling the replicator with an EMPTY candidate list: a holder remembered from
-\* an earlier rule does not lower the shortage of a later rule - a phantom shortage that copies nothing.)
-Replicates(d) == \E k \in 1..Len(d.tasks) : Len(d.tasks[k].nodes) > 0
-Quiet(hs) == \A n \in hs : LET d == Decide27(n, hs, {}, {}) IN ~Replicates(d) /\ d.del = "none"
-NoTasks(hs) == \A n \in hs : ~Replicates(Decide27(n, hs, {}, {}))
-r\* a check "replicates" when it hands the replicator a task with at least one candidate node. (With overlapping
-\* rules the code as found keeps calling the replicator with an EMPTY candidate list: a holder remembered from
-\* an earlier rule does not lower the shortage of a later rule - a phantom shortage that copies nothing.)
-Replicates(d) == \E k \in 1..Len(d.tasks) : Len(d.tasks[k].nodes) > 0
-Quiet(hs) == \A n \in hs : LET d == Decide27(n, hs, {}, {}) IN ~Replicates(d) /\ d.del = "none"
-NoTasks(hs) == \A n \in hs : ~Replicates(Decide27(n, hs, {}, {}))
-
-\* a check "replicates" when it hands the replicator a task with at least one candidate node. (With overlapping
-\* rules the code as found keeps calling the replicator with an EMPTY candidate list: a holder remembered from
-\* an earlier rule does not lower the shortage of a later rule - a phantom shortage that copies nothing.)
-Replicates(d) == \E k \in 1..Len(d.tasks) : Len(d.tasks[k].nodes) > 0
-Quiet(hs) == \A n \in hs : LET d == Decide27(n, hs, {}, {}) IN ~Replicates(d) /\ d.del = "none"
-NoTasks(hs) == \A n \in hs : ~Replicates(Decide27(n, hs, {}, {}))
-
-\* a check "replicates" when it hands the replicator a task with at least one candidate node. (With overlapping
-\* rules the code as found keeps calling the replicator with an EMPTY candidate list: a holder remembered from
-\* an earlier rule does not lower the shortage of a later rule - a phantom shortage that copies nothing.)
-Replicates(d) == \E k \in 1..Len(d.tasks) : Len(d.tasks[k].nodes) > 0
-Quiet(hs) == \A n \in hs : LET d == Decide27(n, hs, {}, {}) IN ~Replicates(d) /\ d.del = "none"
-NoTasks(hs) == \A n \in hs : ~Replicates(Decide27(n, hs, {}, {}))
-C\* a check "replicates" when it hands the replicator a task with at least one candidate node. (With overlapping
-\* rules the code as found keeps calling the replicator with an EMPTY candidate list: a holder remembered from
-\* an earlier rule does not lower the shortage of a later rule - a phantom shortage that copies nothing.)
-Replicates(d) == \E k \in 1..Len(d.tasks) : Len(d.tasks[k].nodes) > 0
-Quiet(hs) == \A n \in hs : LET d == Decide27(n, hs, {}, {}) IN ~Replicates(d) /\ d.del = "none"
-NoTasks(hs) == \A n \in hs : ~Replicates(Decide27(n, hs, {}, {}))
-O\* a check "replicates" when it hands the replicator a task with at least one candidate node. (With overlapping
-\* rules the code as found keeps calling the replicator with an EMPTY candidate list: a holder remembered from
-\* an earlier rule does not lower the shortage of a later rule - a phantom shortage that copies nothing.)
-Replicates(d) == \E k \in 1..Len(d.tasks) : Len(d.tasks[k].nodes) > 0
-Quiet(hs) == \A n \in hs : LET d == Decide27(n, hs, {}, {}) IN ~Replicates(d) /\ d.del = "none"
-NoTasks(hs) == \A n \in hs : ~Replicates(Decide27(n, hs, {}, {}))
-N\* a check "replicates" when it hands the replicator a task with at least one candidate node. (With overlapping
-\* rules the code as found keeps calling the replicator with an EMPTY candidate list: a holder remembered from
-\* an earlier rule does not lower the shortage of a later rule - a phantom shortage that copies nothing.)
-Replicates(d) == \E k \in 1..Len(d.tasks) : Len(d.tasks[k].nodes) > 0
-Quiet(hs) == \A n \in hs : LET d == Decide27(n, hs, {}, {}) IN ~Replicates(d) /\ d.del = "none"
-NoTasks(hs) == \A n \in hs : ~Replicates(Decide27(n, hs, {}, {}))
-S\* a check "replicates" when it hands the replicator a task with at least one candidate node. (With overlapping
-\* rules the code as found keeps calling the replicator with an EMPTY candidate list: a holder remembered from
-\* an earlier rule does not lower the shortage of a later rule - a phantom shortage that copies nothing.)
-Replicates(d) == \E k \in 1..Len(d.tasks) : Len(d.tasks[k].nodes) > 0
-Quiet(hs) == \A n \in hs : LET d == Decide27(n, hs, {}, {}) IN ~Replicates(d) /\ d.del = "none"
-NoTasks(hs) == \A n \in hs : ~Replicates(Decide27(n, hs, {}, {}))
-T\* a check "replicates" when it hands the replicator a task with at least one candidate node. (With overlapping
-\* rules the code as found keeps calling the replicator with an EMPTY candidate list: a holder remembered from
-\* an earlier rule does not lower the shortage of a later rule - a phantom shortage that copies nothing.)
-Replicates(d) == \E k \in 1..Len(d.tasks) : Len(d.tasks[k].nodes) > 0
-Quiet(hs) == \A n \in hs : LET d == Decide27(n, hs, {}, {}) IN ~Replicates(d) /\ d.del = "none"
-NoTasks(hs) == \A n \in hs : ~Replicates(Decide27(n, hs, {}, {}))
-A\* a check "replicates" when it hands the replicator a task with at least one candidate node. (With overlapping
-\* rules the code as found keeps calling the replicator with an EMPTY candidate list: a holder remembered from
-\* an earlier rule does not lower the shortage of a later rule - a phantom shortage that copies nothing.)
-Replicates(d) == \E k \in 1..Len(d.tasks) : Len(d.tasks[k].nodes) > 0
-Quiet(hs) == \A n \in hs : LET d == Decide27(n, hs, {}, {}) IN ~Replicates(d) /\ d.del = "none"
-NoTasks(hs) == \A n \in hs : ~Replicates(Decide27(n, hs, {}, {}))
-N\* a check "replicates" when it hands the replicator a task with at least one candidate node. (With overlapping
-\* rules the code as found keeps calling the replicator with an EMPTY candidate list: a holder remembered from
-\* an earlier rule does not lower the shortage of a later rule - a phantom shortage that copies nothing.)
-Replicates(d) == \E k \in 1..Len(d.tasks) : Len(d.tasks[k].nodes) > 0
-Quiet(hs) == \A n \in hs : LET d == Decide27(n, hs, {}, {}) IN ~Replicates(d) /\ d.del = "none"
-NoTasks(hs) == \A n \in hs : ~Replicates(Decide27(n, hs, {}, {}))
-T\* a check "replicates" when it hands the replicator a task with at least one candidate node. (With overlapping
-\* rules the code as found keeps calling the replicator with an EMPTY candidate list: a holder remembered from
-\* an earlier rule does not lower the shortage of a later rule - a phantom shortage that copies nothing.)
-Replicates(d) == \E k \in 1..Len(d.tasks) : Len(d.tasks[k].nodes) > 0
-Quiet(hs) == \A n \in hs : LET d == Decide27(n, hs, {}, {}) IN ~Replicates(d) /\ d.del = "none"
-NoTasks(hs) == \A n \in hs : ~Replicates(Decide27(n, hs, {}, {}))
-S\* a check "replicates" when it hands the replicator a task with at least one candidate node. (With overlapping
-\* rules the code as found keeps calling the replicator with an EMPTY candidate list: a holder remembered from
-\* an earlier rule does not lower the shortage of a later rule - a phantom shortage that copies nothing.)
-Replicates(d) == \E k \in 1..Len(d.tasks) : Len(d.tasks[k].nodes) > 0
-Quiet(hs) == \A n \in hs : LET d == Decide27(n, hs, {}, {}) IN ~Replicates(d) /\ d.del = "none"
-NoTasks(hs) == \A n \in hs : ~Replicates(Decide27(n, hs, {}, {}))
- \* a check "replicates" when it hands the replicator a task with at least one candidate node. (With overlapping
-\* rules the code as found keeps calling the replicator with an EMPTY candidate list: a holder remembered from
-\* an earlier rule does not lower the shortage of a later rule - a phantom shortage that copies nothing.)
-Replicates(d) == \E k \in 1..Len(d.tasks) : Len(d.tasks[k].nodes) > 0
-Quiet(hs) == \A n \in hs : LET d == Decide27(n, hs, {}, {}) IN ~Replicates(d) /\ d.del = "none"
-NoTasks(hs) == \A n \in hs : ~Replicates(Decide27(n, hs, {}, {}))
-N\* a check "replicates" when it hands the replicator a task with at least one candidate node. (With overlapping
-\* rules the code as found keeps calling the replicator with an EMPTY candidate list: a holder remembered from
-\* an earlier rule does not lower the shortage of a later rule - a phantom shortage that copies nothing.)
-Replicates(d) == \E k \in 1..Len(d.tasks) : Len(d.tasks[k].nodes) > 0
-Quiet(hs) == \A n \in hs : LET d == Decide27(n, hs, {}, {}) IN ~Replicates(d) /\ d.del = "none"
-NoTasks(hs) == \A n \in hs : ~Replicates(Decide27(n, hs, {}, {}))
-,\* a check "replicates" when it hands the replicator a task with at least one candidate node. (With overlapping
-\* rules the code as found keeps calling the replicator with an EMPTY candidate list: a holder remembered from
-\* an earlier rule does not lower the shortage of a later rule - a phantom shortage that copies nothing.)
-Replicates(d) == \E k \in 1..Len(d.tasks) : Len(d.tasks[k].nodes) > 0
-Quiet(hs) == \A n \in hs : LET d == Decide27(n, hs, {}, {}) IN ~Replicates(d) /\ d.del = "none"
-NoTasks(hs) == \A n \in hs : ~Replicates(Decide27(n, hs, {}, {}))
- \* a check "replicates" when it hands the replicator a task with at least one candidate node. (With overlapping
-\* rules the code as found keeps calling the replicator with an EMPTY candidate list: a holder remembered from
-\* an earlier rule does not lower the shortage of a later rule - a phantom shortage that copies nothing.)
-Replicates(d) == \E k \in 1..Len(d.tasks) : Len(d.tasks[k].nodes) > 0
-Quiet(hs) == \A n \in hs : LET d == Decide27(n, hs, {}, {}) IN ~Replicates(d) /\ d.del = "none"
-NoTasks(hs) == \A n \in hs : ~Replicates(Decide27(n, hs, {}, {}))
- \* a check "replicates" when it hands the replicator a task with at least one candidate node. (With overlapping
-\* rules the code as found keeps calling the replicator with an EMPTY candidate list: a holder remembered from
-\* an earlier rule does not lower the shortage of a later rule - a phantom shortage that copies nothing.)
-Replicates(d) == \E k \in 1..Len(d.tasks) : Len(d.tasks[k].nodes) > 0
-Quiet(hs) == \A n \in hs : LET d == Decide27(n, hs, {}, {}) IN ~Replicates(d) /\ d.del = "none"
-NoTasks(hs) == \A n \in hs : ~Replicates(Decide27(n, hs, {}, {}))
- \* a check "replicates" when it hands the replicator a task with at least one candidate node. (With overlapping
-\* rules the code as found keeps calling the replicator with an EMPTY candidate list: a holder remembered from
-\* an earlier rule does not lower the shortage of a later rule - a phantom shortage that copies nothing.)
-Replicates(d) == \E k \in 1..Len(d.tasks) : Len(d.tasks[k].nodes) > 0
-Quiet(hs) == \A n \in hs : LET d == Decide27(n, hs, {}, {}) IN ~Replicates(d) /\ d.del = "none"
-NoTasks(hs) == \A n \in hs : ~Replicates(Decide27(n, hs, {}, {}))
- \* a check "replicates" when it hands the replicator a task with at least one candidate node. (With overlapping
-\* rules the code as found keeps calling the replicator with an EMPTY candidate list: a holder remembered from
-\* an earlier rule does not lower the shortage of a later rule - a phantom shortage that copies nothing.)
-Replicates(d) == \E k \in 1..Len(d.tasks) : Len(d.tasks[k].nodes) > 0
-Quiet(hs) == \A n \in hs : LET d == Decide27(n, hs, {}, {}) IN ~Replicates(d) /\ d.del = "none"
-NoTasks(hs) == \A n \in hs : ~Replicates(Decide27(n, hs, {}, {}))
- \* a check "replicates" when it hands the replicator a task with at least one candidate node. (With overlapping
-\* rules the code as found keeps calling the replicator with an EMPTY candidate list: a holder remembered from
-\* an earlier rule does not lower the shortage of a later rule - a phantom shortage that copies nothing.)
-Replicates(d) == \E k \in 1..Len(d.tasks) : Len(d.tasks[k].nodes) > 0
-Quiet(hs) == \A n \in hs : LET d == Decide27(n, hs, {}, {}) IN ~Replicates(d) /\ d.del = "none"
-NoTasks(hs) == \A n \in hs : ~Replicates(Decide27(n, hs, {}, {}))
- \* a check "replicates" when it hands the replicator a task with at least one candidate node. (With overlapping
-\* rules the code as found keeps calling the replicator with an EMPTY candidate list: a holder remembered from
-\* an earlier rule does not lower the shortage of a later rule - a phantom shortage that copies nothing.)
-Replicates(d) == \E k \in 1..Len(d.tasks) : Len(d.tasks[k].nodes) > 0
-Quiet(hs) == \A n \in hs : LET d == Decide27(n, hs, {}, {}) IN ~Replicates(d) /\ d.del = "none"
-NoTasks(hs) == \A n \in hs : ~Replicates(Decide27(n, hs, {}, {}))
- \* a check "replicates" when it hands the replicator a task with at least one candidate node. (With overlapping
-\* rules the code as found keeps calling the replicator with an EMPTY candidate list: a holder remembered from
-\* an earlier rule does not lower the shortage of a later rule - a phantom shortage that copies nothing.)
-Replicates(d) == \E k \in 1..Len(d.tasks) : Len(d.tasks[k].nodes) > 0
-Quiet(hs) == \A n \in hs : LET d == Decide27(n, hs, {}, {}) IN ~Replicates(d) /\ d.del = "none"
-NoTasks(hs) == \A n \in hs : ~Replicates(Decide27(n, hs, {}, {}))
- \* a check "replicates" when it hands the replicator a task with at least one candidate node. (With overlapping
-\* rules the code as found keeps calling the replicator with an EMPTY candidate list: a holder remembered from
-\* an earlier rule does not lower the shortage of a later rule - a phantom shortage that copies nothing.)
-Replicates(d) == \E k \in 1..Len(d.tasks) : Len(d.tasks[k].nodes) > 0
-Quiet(hs) == \A n \in hs : LET d == Decide27(n, hs, {}, {}) IN ~Replicates(d) /\ d.del = "none"
-NoTasks(hs) == \A n \in hs : ~Replicates(Decide27(n, hs, {}, {}))
- \* a check "replicates" when it hands the replicator a task with at least one candidate node. (With overlapping
-\* rules the code as found keeps calling the replicator with an EMPTY candidate list: a holder remembered from
-\* an earlier rule does not lower the shortage of a later rule - a phantom shortage that copies nothing.)
-Replicates(d) == \E k \in 1..Len(d.tasks) : Len(d.tasks[k].nodes) > 0
-Quiet(hs) == \A n \in hs : LET d == Decide27(n, hs, {}, {}) IN ~Replicates(d) /\ d.del = "none"
-NoTasks(hs) == \A n \in hs : ~Replicates(Decide27(n, hs, {}, {}))
- \* a check "replicates" when it hands the replicator a task with at least one candidate node. (With overlapping
-\* rules the code as found keeps calling the replicator with an EMPTY candidate list: a holder remembered from
-\* an earlier rule does not lower the shortage of a later rule - a phantom shortage that copies nothing.)
-Replicates(d) == \E k \in 1..Len(d.tasks) : Len(d.tasks[k].nodes) > 0
-Quiet(hs) == \A n \in hs : LET d == Decide27(n, hs, {}, {}) IN ~Replicates(d) /\ d.del = "none"
-NoTasks(hs) == \A n \in hs : ~Replicates(Decide27(n, hs, {}, {}))
-\\* a check "replicates" when it hands the replicator a task with at least one candidate node. (With overlapping
-\* rules the code as found keeps calling the replicator with an EMPTY candidate list: a holder remembered from
-\* an earlier rule does not lower the shortage of a later rule - a phantom shortage that copies nothing.)
-Replicates(d) == \E k \in 1..Len(d.tasks) : Len(d.tasks[k].nodes) > 0
-Quiet(hs) == \A n \in hs : LET d == Decide27(n, hs, {}, {}) IN ~Replicates(d) /\ d.del = "none"
-NoTasks(hs) == \A n \in hs : ~Replicates(Decide27(n, hs, {}, {}))
-*\* a check "replicates" when it hands the replicator a task with at least one candidate node. (With overlapping
-\* rules the code as found keeps calling the replicator with an EMPTY candidate list: a holder remembered from
-\* an earlier rule does not lower the shortage of a later rule - a phantom shortage that copies nothing.)
-Replicates(d) == \E k \in 1..Len(d.tasks) : Len(d.tasks[k].nodes) > 0
-Quiet(hs) == \A n \in hs : LET d == Decide27(n, hs, {}, {}) IN ~Replicates(d) /\ d.del = "none"
-NoTasks(hs) == \A n \in hs : ~Replicates(Decide27(n, hs, {}, {}))
- \* a check "replicates" when it hands the replicator a task with at least one candidate node. (With overlapping
-\* rules the code as found keeps calling the replicator with an EMPTY candidate list: a holder remembered from
-\* an earlier rule does not lower the shortage of a later rule - a phantom shortage that copies nothing.)
-Replicates(d) == \E k \in 1..Len(d.tasks) : Len(d.tasks[k].nodes) > 0
-Quiet(hs) == \A n \in hs : LET d == Decide27(n, hs, {}, {}) IN ~Replicates(d) /\ d.del = "none"
-NoTasks(hs) == \A n \in hs : ~Replicates(Decide27(n, hs, {}, {}))
-c\* a check "replicates" when it hands the replicator a task with at least one candidate node. (With overlapping
-\* rules the code as found keeps calling the replicator with an EMPTY candidate list: a holder remembered from
-\* an earlier rule does not lower the shortage of a later rule - a phantom shortage that copies nothing.)
-Replicates(d) == \E k \in 1..Len(d.tasks) : Len(d.tasks[k].nodes) > 0
-Quiet(hs) == \A n \in hs : LET d == Decide27(n, hs, {}, {}) IN ~Replicates(d) /\ d.del = "none"
-NoTasks(hs) == \A n \in hs : ~Replicates(Decide27(n, hs, {}, {}))
-l\* a check "replicates" when it hands the replicator a task with at least one candidate node. (With overlapping
-\* rules the code as found keeps calling the replicator with an EMPTY candidate list: a holder remembered from
-\* an earlier rule does not lower the shortage of a later rule - a phantom shortage that copies nothing.)
-Replicates(d) == \E k \in 1..Len(d.tasks) : Len(d.tasks[k].nodes) > 0
-Quiet(hs) == \A n \in hs : LET d == Decide27(n, hs, {}, {}) IN ~Replicates(d) /\ d.del = "none"
-NoTasks(hs) == \A n \in hs : ~Replicates(Decide27(n, hs, {}, {}))
-u\* a check "replicates" when it hands the replicator a task with at least one candidate node. (With overlapping
-\* rules the code as found keeps calling the replicator with an EMPTY candidate list: a holder remembered from
-\* an earlier rule does not lower the shortage of a later rule - a phantom shortage that copies nothing.)
-Replicates(d) == \E k \in 1..Len(d.tasks) : Len(d.tasks[k].nodes) > 0
-Quiet(hs) == \A n \in hs : LET d == Decide27(n, hs, {}, {}) IN ~Replicates(d) /\ d.del = "none"
-NoTasks(hs) == \A n \in hs : ~Replicates(Decide27(n, hs, {}, {}))
-s\* a check "replicates" when it hands the replicator a task with at least one candidate node. (With overlapping
-\* rules the code as found keeps calling the replicator with an EMPTY candidate list: a holder remembered from
-\* an earlier rule does not lower the shortage of a later rule - a phantom shortage that copies nothing.)
-Replicates(d) == \E k \in 1..Len(d.tasks) : Len(d.tasks[k].nodes) > 0
-Quiet(hs) == \A n \in hs : LET d == Decide27(n, hs, {}, {}) IN ~Replicates(d) /\ d.del = "none"
-NoTasks(hs) == \A n \in hs : ~Replicates(Decide27(n, hs, {}, {}))
-t\* a check "replicates" when it hands the replicator a task with at least one candidate node. (With overlapping
-\* rules the code as found keeps calling the replicator with an EMPTY candidate list: a holder remembered from
-\* an earlier rule does not lower the shortage of a later rule - a phantom shortage that copies nothing.)
-Replicates(d) == \E k \in 1..Len(d.tasks) : Len(d.tasks[k].nodes) > 0
-Quiet(hs) == \A n \in hs : LET d == Decide27(n, hs, {}, {}) IN ~Replicates(d) /\ d.del = "none"
-NoTasks(hs) == \A n \in hs : ~Replicates(Decide27(n, hs, {}, {}))
-e\* a check "replicates" when it hands the replicator a task with at least one candidate node. (With overlapping
-\* rules the code as found keeps calling the replicator with an EMPTY candidate list: a holder remembered from
-\* an earlier rule does not lower the shortage of a later rule - a phantom shortage that copies nothing.)
-Replicates(d) == \E k \in 1..Len(d.tasks) : Len(d.tasks[k].nodes) > 0
-Quiet(hs) == \A n \in hs : LET d == Decide27(n, hs, {}, {}) IN ~Replicates(d) /\ d.del = "none"
-NoTasks(hs) == \A n \in hs : ~Replicates(Decide27(n, hs, {}, {}))
-r\* a check "replicates" when it hands the replicator a task with at least one candidate node. (With overlapping
-\* rules the code as found keeps calling the replicator with an EMPTY candidate list: a holder remembered from
-\* an earlier rule does not lower the shortage of a later rule - a phantom shortage that copies nothing.)
-Replicates(d) == \E k \in 1..Len(d.tasks) : Len(d.tasks[k].nodes) > 0
-Quiet(hs) == \A n \in hs : LET d == Decide27(n, hs, {}, {}) IN ~Replicates(d) /\ d.del = "none"
-NoTasks(hs) == \A n \in hs : ~Replicates(Decide27(n, hs, {}, {}))
- \* a check "replicates" when it hands the replicator a task with at least one candidate node. (With overlapping
-\* rules the code as found keeps calling the replicator with an EMPTY candidate list: a holder remembered from
-\* an earlier rule does not lower the shortage of a later rule - a phantom shortage that copies nothing.)
-Replicates(d) == \E k \in 1..Len(d.tasks) : Len(d.tasks[k].nodes) > 0
-Quiet(hs) == \A n \in hs : LET d == Decide27(n, hs, {}, {}) IN ~Replicates(d) /\ d.del = "none"
-NoTasks(hs) == \A n \in hs : ~Replicates(Decide27(n, hs, {}, {}))
-s\* a check "replicates" when it hands the replicator a task with at least one candidate node. (With overlapping
-\* rules the code as found keeps calling the replicator with an EMPTY candidate list: a holder remembered from
-\* an earlier rule does not lower the shortage of a later rule - a phantom shortage that copies nothing.)
-Replicates(d) == \E k \in 1..Len(d.tasks) : Len(d.tasks[k].nodes) > 0
-Quiet(hs) == \A n \in hs : LET d == Decide27(n, hs, {}, {}) IN ~Replicates(d) /\ d.del = "none"
-NoTasks(hs) == \A n \in hs : ~Replicates(Decide27(n, hs, {}, {}))
-i\* a check "replicates" when it hands the replicator a task with at least one candidate node. (With overlapping
-\* rules the code as found keeps calling the replicator with an EMPTY candidate list: a holder remembered from
-\* an earlier rule does not lower the shortage of a later rule - a phantom shortage that copies nothing.)
-Replicates(d) == \E k \in 1..Len(d.tasks) : Len(d.tasks[k].nodes) > 0
-Quiet(hs) == \A n \in hs : LET d == Decide27(n, hs, {}, {}) IN ~Replicates(d) /\ d.del = "none"
-NoTasks(hs) == \A n \in hs : ~Replicates(Decide27(n, hs, {}, {}))
-z\* a check "replicates" when it hands the replicator a task with at least one candidate node. (With overlapping
-\* rules the code as found keeps calling the replicator with an EMPTY candidate list: a holder remembered from
-\* an earlier rule does not lower the shortage of a later rule - a phantom shortage that copies nothing.)
-Replicates(d) == \E k \in 1..Len(d.tasks) : Len(d.tasks[k].nodes) > 0
-Quiet(hs) == \A n \in hs : LET d == Decide27(n, hs, {}, {}) IN ~Replicates(d) /\ d.del = "none"
-NoTasks(hs) == \A n \in hs : ~Replicates(Decide27(n, hs, {}, {}))
-e\* a check "replicates" when it hands the replicator a task with at least one candidate node. (With overlapping
-\* rules the code as found keeps calling the replicator with an EMPTY candidate list: a holder remembered from
-\* an earlier rule does not lower the shortage of a later rule - a phantom shortage that copies nothing.)
-Replicates(d) == \E k \in 1..Len(d.tasks) : Len(d.tasks[k].nodes) > 0
-Quiet(hs) == \A n \in hs : LET d == Decide27(n, hs, {}, {}) IN ~Replicates(d) /\ d.del = "none"
-NoTasks(hs) == \A n \in hs : ~Replicates(Decide27(n, hs, {}, {}))
-
-\* a check "replicates" when it hands the replicator a task with at least one candidate node. (With overlapping
-\* rules the code as found keeps calling the replicator with an EMPTY candidate list: a holder remembered from
-\* an earlier rule does not lower the shortage of a later rule - a phantom shortage that copies nothing.)
-Replicates(d) == \E k \in 1..Len(d.tasks) : Len(d.tasks[k].nodes) > 0
-Quiet(hs) == \A n \in hs : LET d == Decide27(n, hs, {}, {}) IN ~Replicates(d) /\ d.del = "none"
-NoTasks(hs) == \A n \in hs : ~Replicates(Decide27(n, hs, {}, {}))
- \* a check "replicates" when it hands the replicator a task with at least one candidate node. (With overlapping
-\* rules the code as found keeps calling the replicator with an EMPTY candidate list: a holder remembered from
-\* an earlier rule does not lower the shortage of a later rule - a phantom shortage that copies nothing.)
-Replicates(d) == \E k \in 1..Len(d.tasks) : Len(d.tasks[k].nodes) > 0
-Quiet(hs) == \A n \in hs : LET d == Decide27(n, hs, {}, {}) IN ~Replicates(d) /\ d.del = "none"
-NoTasks(hs) == \A n \in hs : ~Replicates(Decide27(n, hs, {}, {}))
- \* a check "replicates" when it hands the replicator a task with at least one candidate node. (With overlapping
-\* rules the code as found keeps calling the replicator with an EMPTY candidate list: a holder remembered from
-\* an earlier rule does not lower the shortage of a later rule - a phantom shortage that copies nothing.)
-Replicates(d) == \E k \in 1..Len(d.tasks) : Len(d.tasks[k].nodes) > 0
-Quiet(hs) == \A n \in hs : LET d == Decide27(n, hs, {}, {}) IN ~Replicates(d) /\ d.del = "none"
-NoTasks(hs) == \A n \in hs : ~Replicates(Decide27(n, hs, {}, {}))
- \* a check "replicates" when it hands the replicator a task with at least one candidate node. (With overlapping
-\* rules the code as found keeps calling the replicator with an EMPTY candidate list: a holder remembered from
-\* an earlier rule does not lower the shortage of a later rule - a phantom shortage that copies nothing.)
-Replicates(d) == \E k \in 1..Len(d.tasks) : Len(d.tasks[k].nodes) > 0
-Quiet(hs) == \A n \in hs : LET d == Decide27(n, hs, {}, {}) IN ~Replicates(d) /\ d.del = "none"
-NoTasks(hs) == \A n \in hs : ~Replicates(Decide27(n, hs, {}, {}))
- \* a check "replicates" when it hands the replicator a task with at least one candidate node. (With overlapping
-\* rules the code as found keeps calling the replicator with an EMPTY candidate list: a holder remembered from
-\* an earlier rule does not lower the shortage of a later rule - a phantom shortage that copies nothing.)
-Replicates(d) == \E k \in 1..Len(d.tasks) : Len(d.tasks[k].nodes) > 0
-Quiet(hs) == \A n \in hs : LET d == Decide27(n, hs, {}, {}) IN ~Replicates(d) /\ d.del = "none"
-NoTasks(hs) == \A n \in hs : ~Replicates(Decide27(n, hs, {}, {}))
- \* a check "replicates" when it hands the replicator a task with at least one candidate node. (With overlapping
-\* rules the code as found keeps calling the replicator with an EMPTY candidate list: a holder remembered from
-\* an earlier rule does not lower the shortage of a later rule - a phantom shortage that copies nothing.)
-Replicates(d) == \E k \in 1..Len(d.tasks) : Len(d.tasks[k].nodes) > 0
-Quiet(hs) == \A n \in hs : LET d == Decide27(n, hs, {}, {}) IN ~Replicates(d) /\ d.del = "none"
-NoTasks(hs) == \A n \in hs : ~Replicates(Decide27(n, hs, {}, {}))
- \* a check "replicates" when it hands the replicator a task with at least one candidate node. (With overlapping
-\* rules the code as found keeps calling the replicator with an EMPTY candidate list: a holder remembered from
-\* an earlier rule does not lower the shortage of a later rule - a phantom shortage that copies nothing.)
-Replicates(d) == \E k \in 1..Len(d.tasks) : Len(d.tasks[k].nodes) > 0
-Quiet(hs) == \A n \in hs : LET d == Decide27(n, hs, {}, {}) IN ~Replicates(d) /\ d.del = "none"
-NoTasks(hs) == \A n \in hs : ~Replicates(Decide27(n, hs, {}, {}))
- \* a check "replicates" when it hands the replicator a task with at least one candidate node. (With overlapping
-\* rules the code as found keeps calling the replicator with an EMPTY candidate list: a holder remembered from
-\* an earlier rule does not lower the shortage of a later rule - a phantom shortage that copies nothing.)
-Replicates(d) == \E k \in 1..Len(d.tasks) : Len(d.tasks[k].nodes) > 0
-Quiet(hs) == \A n \in hs : LET d == Decide27(n, hs, {}, {}) IN ~Replicates(d) /\ d.del = "none"
-NoTasks(hs) == \A n \in hs : ~Replicates(Decide27(n, hs, {}, {}))
- \* a check "replicates" when it hands the replicator a task with at least one candidate node. (With overlapping
-\* rules the code as found keeps calling the replicator with an EMPTY candidate list: a holder remembered from
-\* an earlier rule does not lower the shortage of a later rule - a phantom shortage that copies nothing.)
-Replicates(d) == \E k \in 1..Len(d.tasks) : Len(d.tasks[k].nodes) > 0
-Quiet(hs) == \A n \in hs : LET d == Decide27(n, hs, {}, {}) IN ~Replicates(d) /\ d.del = "none"
-NoTasks(hs) == \A n \in hs : ~Replicates(Decide27(n, hs, {}, {}))
- \* a check "replicates" when it hands the replicator a task with at least one candidate node. (With overlapping
-\* rules the code as found keeps calling the replicator with an EMPTY candidate list: a holder remembered from
-\* an earlier rule does not lower the shortage of a later rule - a phantom shortage that copies nothing.)
-Replicates(d) == \E k \in 1..Len(d.tasks) : Len(d.tasks[k].nodes) > 0
-Quiet(hs) == \A n \in hs : LET d == Decide27(n, hs, {}, {}) IN ~Replicates(d) /\ d.del = "none"
-NoTasks(hs) == \A n \in hs : ~Replicates(Decide27(n, hs, {}, {}))
- \* a check "replicates" when it hands the replicator a task with at least one candidate node. (With overlapping
-\* rules the code as found keeps calling the replicator with an EMPTY candidate list: a holder remembered from
-\* an earlier rule does not lower the shortage of a later rule - a phantom shortage that copies nothing.)
-Replicates(d) == \E k \in 1..Len(d.tasks) : Len(d.tasks[k].nodes) > 0
-Quiet(hs) == \A n \in hs : LET d == Decide27(n, hs, {}, {}) IN ~Replicates(d) /\ d.del = "none"
-NoTasks(hs) == \A n \in hs : ~Replicates(Decide27(n, hs, {}, {}))
-R\* a check "replicates" when it hands the replicator a task with at least one candidate node. (With overlapping
-\* rules the code as found keeps calling the replicator with an EMPTY candidate list: a holder remembered from
-\* an earlier rule does not lower the shortage of a later rule - a phantom shortage that copies nothing.)
-Replicates(d) == \E k \in 1..Len(d.tasks) : Len(d.tasks[k].nodes) > 0
-Quiet(hs) == \A n \in hs : LET d == Decide27(n, hs, {}, {}) IN ~Replicates(d) /\ d.del = "none"
-NoTasks(hs) == \A n \in hs : ~Replicates(Decide27(n, hs, {}, {}))
-e\* a check "replicates" when it hands the replicator a task with at least one candidate node. (With overlapping
-\* rules the code as found keeps calling the replicator with an EMPTY candidate list: a holder remembered from
-\* an earlier rule does not lower the shortage of a later rule - a phantom shortage that copies nothing.)
-Replicates(d) == \E k \in 1..Len(d.tasks) : Len(d.tasks[k].nodes) > 0
-Quiet(hs) == \A n \in hs : LET d == Decide27(n, hs, {}, {}) IN ~Replicates(d) /\ d.del = "none"
-NoTasks(hs) == \A n \in hs : ~Replicates(Decide27(n, hs, {}, {}))
-p\* a check "replicates" when it hands the replicator a task with at least one candidate node. (With overlapping
-\* rules the code as found keeps calling the replicator with an EMPTY candidate list: a holder remembered from
-\* an earlier rule does not lower the shortage of a later rule - a phantom shortage that copies nothing.)
-Replicates(d) == \E k \in 1..Len(d.tasks) : Len(d.tasks[k].nodes) > 0
-Quiet(hs) == \A n \in hs : LET d == Decide27(n, hs, {}, {}) IN ~Replicates(d) /\ d.del = "none"
-NoTasks(hs) == \A n \in hs : ~Replicates(Decide27(n, hs, {}, {}))
-s\* a check "replicates" when it hands the replicator a task with at least one candidate node. (With overlapping
-\* rules the code as found keeps calling the replicator with an EMPTY candidate list: a holder remembered from
-\* an earlier rule does not lower the shortage of a later rule - a phantom shortage that copies nothing.)
-Replicates(d) == \E k \in 1..Len(d.tasks) : Len(d.tasks[k].nodes) > 0
-Quiet(hs) == \A n \in hs : LET d == Decide27(n, hs, {}, {}) IN ~Replicates(d) /\ d.del = "none"
-NoTasks(hs) == \A n \in hs : ~Replicates(Decide27(n, hs, {}, {}))
-,\* a check "replicates" when it hands the replicator a task with at least one candidate node. (With overlapping
-\* rules the code as found keeps calling the replicator with an EMPTY candidate list: a holder remembered from
-\* an earlier rule does not lower the shortage of a later rule - a phantom shortage that copies nothing.)
-Replicates(d) == \E k \in 1..Len(d.tasks) : Len(d.tasks[k].nodes) > 0
-Quiet(hs) == \A n \in hs : LET d == Decide27(n, hs, {}, {}) IN ~Replicates(d) /\ d.del = "none"
-NoTasks(hs) == \A n \in hs : ~Replicates(Decide27(n, hs, {}, {}))
- \* a check "replicates" when it hands the replicator a task with at least one candidate node. (With overlapping
-\* rules the code as found keeps calling the replicator with an EMPTY candidate list: a holder remembered from
-\* an earlier rule does not lower the shortage of a later rule - a phantom shortage that copies nothing.)
-Replicates(d) == \E k \in 1..Len(d.tasks) : Len(d.tasks[k].nodes) > 0
-Quiet(hs) == \A n \in hs : LET d == Decide27(n, hs, {}, {}) IN ~Replicates(d) /\ d.del = "none"
-NoTasks(hs) == \A n \in hs : ~Replicates(Decide27(n, hs, {}, {}))
- \* a check "replicates" when it hands the replicator a task with at least one candidate node. (With overlapping
-\* rules the code as found keeps calling the replicator with an EMPTY candidate list: a holder remembered from
-\* an earlier rule does not lower the shortage of a later rule - a phantom shortage that copies nothing.)
-Replicates(d) == \E k \in 1..Len(d.tasks) : Len(d.tasks[k].nodes) > 0
-Quiet(hs) == \A n \in hs : LET d == Decide27(n, hs, {}, {}) IN ~Replicates(d) /\ d.del = "none"
-NoTasks(hs) == \A n \in hs : ~Replicates(Decide27(n, hs, {}, {}))
- \* a check "replicates" when it hands the replicator a task with at least one candidate node. (With overlapping
-\* rules the code as found keeps calling the replicator with an EMPTY candidate list: a holder remembered from
-\* an earlier rule does not lower the shortage of a later rule - a phantom shortage that copies nothing.)
-Replicates(d) == \E k \in 1..Len(d.tasks) : Len(d.tasks[k].nodes) > 0
-Quiet(hs) == \A n \in hs : LET d == Decide27(n, hs, {}, {}) IN ~Replicates(d) /\ d.del = "none"
-NoTasks(hs) == \A n \in hs : ~Replicates(Decide27(n, hs, {}, {}))
- \* a check "replicates" when it hands the replicator a task with at least one candidate node. (With overlapping
-\* rules the code as found keeps calling the replicator with an EMPTY candidate list: a holder remembered from
-\* an earlier rule does not lower the shortage of a later rule - a phantom shortage that copies nothing.)
-Replicates(d) == \E k \in 1..Len(d.tasks) : Len(d.tasks[k].nodes) > 0
-Quiet(hs) == \A n \in hs : LET d == Decide27(n, hs, {}, {}) IN ~Replicates(d) /\ d.del = "none"
-NoTasks(hs) == \A n \in hs : ~Replicates(Decide27(n, hs, {}, {}))
- \* a check "replicates" when it hands the replicator a task with at least one candidate node. (With overlapping
-\* rules the code as found keeps calling the replicator with an EMPTY candidate list: a holder remembered from
-\* an earlier rule does not lower the shortage of a later rule - a phantom shortage that copies nothing.)
-Replicates(d) == \E k \in 1..Len(d.tasks) : Len(d.tasks[k].nodes) > 0
-Quiet(hs) == \A n \in hs : LET d == Decide27(n, hs, {}, {}) IN ~Replicates(d) /\ d.del = "none"
-NoTasks(hs) == \A n \in hs : ~Replicates(Decide27(n, hs, {}, {}))
- \* a check "replicates" when it hands the replicator a task with at least one candidate node. (With overlapping
-\* rules the code as found keeps calling the replicator with an EMPTY candidate list: a holder remembered from
-\* an earlier rule does not lower the shortage of a later rule - a phantom shortage that copies nothing.)
-Replicates(d) == \E k \in 1..Len(d.tasks) : Len(d.tasks[k].nodes) > 0
-Quiet(hs) == \A n \in hs : LET d == Decide27(n, hs, {}, {}) IN ~Replicates(d) /\ d.del = "none"
-NoTasks(hs) == \A n \in hs : ~Replicates(Decide27(n, hs, {}, {}))
- \* a check "replicates" when it hands the replicator a task with at least one candidate node. (With overlapping
-\* rules the code as found keeps calling the replicator with an EMPTY candidate list: a holder remembered from
-\* an earlier rule does not lower the shortage of a later rule - a phantom shortage that copies nothing.)
-Replicates(d) == \E k \in 1..Len(d.tasks) : Len(d.tasks[k].nodes) > 0
-Quiet(hs) == \A n \in hs : LET d == Decide27(n, hs, {}, {}) IN ~Replicates(d) /\ d.del = "none"
-NoTasks(hs) == \A n \in hs : ~Replicates(Decide27(n, hs, {}, {}))
-\\* a check "replicates" when it hands the replicator a task with at least one candidate node. (With overlapping
-\* rules the code as found keeps calling the replicator with an EMPTY candidate list: a holder remembered from
-\* an earlier rule does not lower the shortage of a later rule - a phantom shortage that copies nothing.)
-Replicates(d) == \E k \in 1..Len(d.tasks) : Len(d.tasks[k].nodes) > 0
-Quiet(hs) == \A n \in hs : LET d == Decide27(n, hs, {}, {}) IN ~Replicates(d) /\ d.del = "none"
-NoTasks(hs) == \A n \in hs : ~Replicates(Decide27(n, hs, {}, {}))
-*\* a check "replicates" when it hands the replicator a task with at least one candidate node. (With overlapping
-\* rules the code as found keeps calling the replicator with an EMPTY candidate list: a holder remembered from
-\* an earlier rule does not lower the shortage of a later rule - a phantom shortage that copies nothing.)
-Replicates(d) == \E k \in 1..Len(d.tasks) : Len(d.tasks[k].nodes) > 0
-Quiet(hs) == \A n \in hs : LET d == Decide27(n, hs, {}, {}) IN ~Replicates(d) /\ d.del = "none"
-NoTasks(hs) == \A n \in hs : ~Replicates(Decide27(n, hs, {}, {}))
- \* a check "replicates" when it hands the replicator a task with at least one candidate node. (With overlapping
-\* rules the code as found keeps calling the replicator with an EMPTY candidate list: a holder remembered from
-\* an earlier rule does not lower the shortage of a later rule - a phantom shortage that copies nothing.)
-Replicates(d) == \E k \in 1..Len(d.tasks) : Len(d.tasks[k].nodes) > 0
-Quiet(hs) == \A n \in hs : LET d == Decide27(n, hs, {}, {}) IN ~Replicates(d) /\ d.del = "none"
-NoTasks(hs) == \A n \in hs : ~Replicates(Decide27(n, hs, {}, {}))
-R\* a check "replicates" when it hands the replicator a task with at least one candidate node. (With overlapping
-\* rules the code as found keeps calling the replicator with an EMPTY candidate list: a holder remembered from
-\* an earlier rule does not lower the shortage of a later rule - a phantom shortage that copies nothing.)
-Replicates(d) == \E k \in 1..Len(d.tasks) : Len(d.tasks[k].nodes) > 0
-Quiet(hs) == \A n \in hs : LET d == Decide27(n, hs, {}, {}) IN ~Replicates(d) /\ d.del = "none"
-NoTasks(hs) == \A n \in hs : ~Replicates(Decide27(n, hs, {}, {}))
-E\* a check "replicates" when it hands the replicator a task with at least one candidate node. (With overlapping
-\* rules the code as found keeps calling the replicator with an EMPTY candidate list: a holder remembered from
-\* an earlier rule does not lower the shortage of a later rule - a phantom shortage that copies nothing.)
-Replicates(d) == \E k \in 1..Len(d.tasks) : Len(d.tasks[k].nodes) > 0
-Quiet(hs) == \A n \in hs : LET d == Decide27(n, hs, {}, {}) IN ~Replicates(d) /\ d.del = "none"
-NoTasks(hs) == \A n \in hs : ~Replicates(Decide27(n, hs, {}, {}))
-P\* a check "replicates" when it hands the replicator a task with at least one candidate node. (With overlapping
-\* rules the code as found keeps calling the replicator with an EMPTY candidate list: a holder remembered from
-\* an earlier rule does not lower the shortage of a later rule - a phantom shortage that copies nothing.)
-Replicates(d) == \E k \in 1..Len(d.tasks) : Len(d.tasks[k].nodes) > 0
-Quiet(hs) == \A n \in hs : LET d == Decide27(n, hs, {}, {}) IN ~Replicates(d) /\ d.del = "none"
-NoTasks(hs) == \A n \in hs : ~Replicates(Decide27(n, hs, {}, {}))
- \* a check "replicates" when it hands the replicator a task with at least one candidate node. (With overlapping
-\* rules the code as found keeps calling the replicator with an EMPTY candidate list: a holder remembered from
-\* an earlier rule does not lower the shortage of a later rule - a phantom shortage that copies nothing.)
-Replicates(d) == \E k \in 1..Len(d.tasks) : Len(d.tasks[k].nodes) > 0
-Quiet(hs) == \A n \in hs : LET d == Decide27(n, hs, {}, {}) IN ~Replicates(d) /\ d.del = "none"
-NoTasks(hs) == \A n \in hs : ~Replicates(Decide27(n, hs, {}, {}))
-v\* a check "replicates" when it hands the replicator a task with at least one candidate node. (With overlapping
-\* rules the code as found keeps calling the replicator with an EMPTY candidate list: a holder remembered from
-\* an earlier rule does not lower the shortage of a later rule - a phantom shortage that copies nothing.)
-Replicates(d) == \E k \in 1..Len(d.tasks) : Len(d.tasks[k].nodes) > 0
-Quiet(hs) == \A n \in hs : LET d == Decide27(n, hs, {}, {}) IN ~Replicates(d) /\ d.del = "none"
-NoTasks(hs) == \A n \in hs : ~Replicates(Decide27(n, hs, {}, {}))
-a\* a check "replicates" when it hands the replicator a task with at least one candidate node. (With overlapping
-\* rules the code as found keeps calling the replicator with an EMPTY candidate list: a holder remembered from
-\* an earlier rule does not lower the shortage of a later rule - a phantom shortage that copies nothing.)
-Replicates(d) == \E k \in 1..Len(d.tasks) : Len(d.tasks[k].nodes) > 0
-Quiet(hs) == \A n \in hs : LET d == Decide27(n, hs, {}, {}) IN ~Replicates(d) /\ d.del = "none"
-NoTasks(hs) == \A n \in hs : ~Replicates(Decide27(n, hs, {}, {}))
-l\* a check "replicates" when it hands the replicator a task with at least one candidate node. (With overlapping
-\* rules the code as found keeps calling the replicator with an EMPTY candidate list: a holder remembered from
-\* an earlier rule does not lower the shortage of a later rule - a phantom shortage that copies nothing.)
-Replicates(d) == \E k \in 1..Len(d.tasks) : Len(d.tasks[k].nodes) > 0
-Quiet(hs) == \A n \in hs : LET d == Decide27(n, hs, {}, {}) IN ~Replicates(d) /\ d.del = "none"
-NoTasks(hs) == \A n \in hs : ~Replicates(Decide27(n, hs, {}, {}))
-u\* a check "replicates" when it hands the replicator a task with at least one candidate node. (With overlapping
-\* rules the code as found keeps calling the replicator with an EMPTY candidate list: a holder remembered from
-\* an earlier rule does not lower the shortage of a later rule - a phantom shortage that copies nothing.)
-Replicates(d) == \E k \in 1..Len(d.tasks) : Len(d.tasks[k].nodes) > 0
-Quiet(hs) == \A n \in hs : LET d == Decide27(n, hs, {}, {}) IN ~Replicates(d) /\ d.del = "none"
-NoTasks(hs) == \A n \in hs : ~Replicates(Decide27(n, hs, {}, {}))
-e\* a check "replicates" when it hands the replicator a task with at least one candidate node. (With overlapping
-\* rules the code as found keeps calling the replicator with an EMPTY candidate list: a holder remembered from
-\* an earlier rule does not lower the shortage of a later rule - a phantom shortage that copies nothing.)
-Replicates(d) == \E k \in 1..Len(d.tasks) : Len(d.tasks[k].nodes) > 0
-Quiet(hs) == \A n \in hs : LET d == Decide27(n, hs, {}, {}) IN ~Replicates(d) /\ d.del = "none"
-NoTasks(hs) == \A n \in hs : ~Replicates(Decide27(n, hs, {}, {}))
-s\* a check "replicates" when it hands the replicator a task with at least one candidate node. (With overlapping
-\* rules the code as found keeps calling the replicator with an EMPTY candidate list: a holder remembered from
-\* an earlier rule does not lower the shortage of a later rule - a phantom shortage that copies nothing.)
-Replicates(d) == \E k \in 1..Len(d.tasks) : Len(d.tasks[k].nodes) > 0
-Quiet(hs) == \A n \in hs : LET d == Decide27(n, hs, {}, {}) IN ~Replicates(d) /\ d.del = "none"
-NoTasks(hs) == \A n \in hs : ~Replicates(Decide27(n, hs, {}, {}))
- \* a check "replicates" when it hands the replicator a task with at least one candidate node. (With overlapping
-\* rules the code as found keeps calling the replicator with an EMPTY candidate list: a holder remembered from
-\* an earlier rule does not lower the shortage of a later rule - a phantom shortage that copies nothing.)
-Replicates(d) == \E k \in 1..Len(d.tasks) : Len(d.tasks[k].nodes) > 0
-Quiet(hs) == \A n \in hs : LET d == Decide27(n, hs, {}, {}) IN ~Replicates(d) /\ d.del = "none"
-NoTasks(hs) == \A n \in hs : ~Replicates(Decide27(n, hs, {}, {}))
-e\* a check "replicates" when it hands the replicator a task with at least one candidate node. (With overlapping
-\* rules the code as found keeps calling the replicator with an EMPTY candidate list: a holder remembered from
-\* an earlier rule does not lower the shortage of a later rule - a phantom shortage that copies nothing.)
-Replicates(d) == \E k \in 1..Len(d.tasks) : Len(d.tasks[k].nodes) > 0
-Quiet(hs) == \A n \in hs : LET d == Decide27(n, hs, {}, {}) IN ~Replicates(d) /\ d.del = "none"
-NoTasks(hs) == \A n \in hs : ~Replicates(Decide27(n, hs, {}, {}))
-x\* a check "replicates" when it hands the replicator a task with at least one candidate node. (With overlapping
-\* rules the code as found keeps calling the replicator with an EMPTY candidate list: a holder remembered from
-\* an earlier rule does not lower the shortage of a later rule - a phantom shortage that copies nothing.)
-Replicates(d) == \E k \in 1..Len(d.tasks) : Len(d.tasks[k].nodes) > 0
-Quiet(hs) == \A n \in hs : LET d == Decide27(n, hs, {}, {}) IN ~Replicates(d) /\ d.del = "none"
-NoTasks(hs) == \A n \in hs : ~Replicates(Decide27(n, hs, {}, {}))
-p\* a check "replicates" when it hands the replicator a task with at least one candidate node. (With overlapping
-\* rules the code as found keeps calling the replicator with an EMPTY candidate list: a holder remembered from
-\* an earlier rule does not lower the shortage of a later rule - a phantom shortage that copies nothing.)
-Replicates(d) == \E k \in 1..Len(d.tasks) : Len(d.tasks[k].nodes) > 0
-Quiet(hs) == \A n \in hs : LET d == Decide27(n, hs, {}, {}) IN ~Replicates(d) /\ d.del = "none"
-NoTasks(hs) == \A n \in hs : ~Replicates(Decide27(n, hs, {}, {}))
-l\* a check "replicates" when it hands the replicator a task with at least one candidate node. (With overlapping
-\* rules the code as found keeps calling the replicator with an EMPTY candidate list: a holder remembered from
-\* an earlier rule does not lower the shortage of a later rule - a phantom shortage that copies nothing.)
-Replicates(d) == \E k \in 1..Len(d.tasks) : Len(d.tasks[k].nodes) > 0
-Quiet(hs) == \A n \in hs : LET d == Decide27(n, hs, {}, {}) IN ~Replicates(d) /\ d.del = "none"
-NoTasks(hs) == \A n \in hs : ~Replicates(Decide27(n, hs, {}, {}))
-o\* a check "replicates" when it hands the replicator a task with at least one candidate node. (With overlapping
-\* rules the code as found keeps calling the replicator with an EMPTY candidate list: a holder remembered from
-\* an earlier rule does not lower the shortage of a later rule - a phantom shortage that copies nothing.)
-Replicates(d) == \E k \in 1..Len(d.tasks) : Len(d.tasks[k].nodes) > 0
-Quiet(hs) == \A n \in hs : LET d == Decide27(n, hs, {}, {}) IN ~Replicates(d) /\ d.del = "none"
-NoTasks(hs) == \A n \in hs : ~Replicates(Decide27(n, hs, {}, {}))
-r\* a check "replicates" when it hands the replicator a task with at least one candidate node. (With overlapping
-\* rules the code as found keeps calling the replicator with an EMPTY candidate list: a holder remembered from
-\* an earlier rule does not lower the shortage of a later rule - a phantom shortage that copies nothing.)
-Replicates(d) == \E k \in 1..Len(d.tasks) : Len(d.tasks[k].nodes) > 0
-Quiet(hs) == \A n \in hs : LET d == Decide27(n, hs, {}, {}) IN ~Replicates(d) /\ d.del = "none"
-NoTasks(hs) == \A n \in hs : ~Replicates(Decide27(n, hs, {}, {}))
-e\* a check "replicates" when it hands the replicator a task with at least one candidate node. (With overlapping
-\* rules the code as found keeps calling the replicator with an EMPTY candidate list: a holder remembered from
-\* an earlier rule does not lower the shortage of a later rule - a phantom shortage that copies nothing.)
-Replicates(d) == \E k \in 1..Len(d.tasks) : Len(d.tasks[k].nodes) > 0
-Quiet(hs) == \A n \in hs : LET d == Decide27(n, hs, {}, {}) IN ~Replicates(d) /\ d.del = "none"
-NoTasks(hs) == \A n \in hs : ~Replicates(Decide27(n, hs, {}, {}))
-d\* a check "replicates" when it hands the replicator a task with at least one candidate node. (With overlapping
-\* rules the code as found keeps calling the replicator with an EMPTY candidate list: a holder remembered from
-\* an earlier rule does not lower the shortage of a later rule - a phantom shortage that copies nothing.)
-Replicates(d) == \E k \in 1..Len(d.tasks) : Len(d.tasks[k].nodes) > 0
-Quiet(hs) == \A n \in hs : LET d == Decide27(n, hs, {}, {}) IN ~Replicates(d) /\ d.del = "none"
-NoTasks(hs) == \A n \in hs : ~Replicates(Decide27(n, hs, {}, {}))
-
-\* a check "replicates" when it hands the replicator a task with at least one candidate node. (With overlapping
-\* rules the code as found keeps calling the replicator with an EMPTY candidate list: a holder remembered from
-\* an earlier rule does not lower the shortage of a later rule - a phantom shortage that copies nothing.)
-Replicates(d) == \E k \in 1..Len(d.tasks) : Len(d.tasks[k].nodes) > 0
-Quiet(hs) == \A n \in hs : LET d == Decide27(n, hs, {}, {}) IN ~Replicates(d) /\ d.del = "none"
-NoTasks(hs) == \A n \in hs : ~Replicates(Decide27(n, hs, {}, {}))
- \* a check "replicates" when it hands the replicator a task with at least one candidate node. (With overlapping
-\* rules the code as found keeps calling the replicator with an EMPTY candidate list: a holder remembered from
-\* an earlier rule does not lower the shortage of a later rule - a phantom shortage that copies nothing.)
-Replicates(d) == \E k \in 1..Len(d.tasks) : Len(d.tasks[k].nodes) > 0
-Quiet(hs) == \A n \in hs : LET d == Decide27(n, hs, {}, {}) IN ~Replicates(d) /\ d.del = "none"
-NoTasks(hs) == \A n \in hs : ~Replicates(Decide27(n, hs, {}, {}))
- \* a check "replicates" when it hands the replicator a task with at least one candidate node. (With overlapping
-\* rules the code as found keeps calling the replicator with an EMPTY candidate list: a holder remembered from
-\* an earlier rule does not lower the shortage of a later rule - a phantom shortage that copies nothing.)
-Replicates(d) == \E k \in 1..Len(d.tasks) : Len(d.tasks[k].nodes) > 0
-Quiet(hs) == \A n \in hs : LET d == Decide27(n, hs, {}, {}) IN ~Replicates(d) /\ d.del = "none"
-NoTasks(hs) == \A n \in hs : ~Replicates(Decide27(n, hs, {}, {}))
- \* a check "replicates" when it hands the replicator a task with at least one candidate node. (With overlapping
-\* rules the code as found keeps calling the replicator with an EMPTY candidate list: a holder remembered from
-\* an earlier rule does not lower the shortage of a later rule - a phantom shortage that copies nothing.)
-Replicates(d) == \E k \in 1..Len(d.tasks) : Len(d.tasks[k].nodes) > 0
-Quiet(hs) == \A n \in hs : LET d == Decide27(n, hs, {}, {}) IN ~Replicates(d) /\ d.del = "none"
-NoTasks(hs) == \A n \in hs : ~Replicates(Decide27(n, hs, {}, {}))
- \* a check "replicates" when it hands the replicator a task with at least one candidate node. (With overlapping
-\* rules the code as found keeps calling the replicator with an EMPTY candidate list: a holder remembered from
-\* an earlier rule does not lower the shortage of a later rule - a phantom shortage that copies nothing.)
-Replicates(d) == \E k \in 1..Len(d.tasks) : Len(d.tasks[k].nodes) > 0
-Quiet(hs) == \A n \in hs : LET d == Decide27(n, hs, {}, {}) IN ~Replicates(d) /\ d.del = "none"
-NoTasks(hs) == \A n \in hs : ~Replicates(Decide27(n, hs, {}, {}))
- \* a check "replicates" when it hands the replicator a task with at least one candidate node. (With overlapping
-\* rules the code as found keeps calling the replicator with an EMPTY candidate list: a holder remembered from
-\* an earlier rule does not lower the shortage of a later rule - a phantom shortage that copies nothing.)
-Replicates(d) == \E k \in 1..Len(d.tasks) : Len(d.tasks[k].nodes) > 0
-Quiet(hs) == \A n \in hs : LET d == Decide27(n, hs, {}, {}) IN ~Replicates(d) /\ d.del = "none"
-NoTasks(hs) == \A n \in hs : ~Replicates(Decide27(n, hs, {}, {}))
- \* a check "replicates" when it hands the replicator a task with at least one candidate node. (With overlapping
-\* rules the code as found keeps calling the replicator with an EMPTY candidate list: a holder remembered from
-\* an earlier rule does not lower the shortage of a later rule - a phantom shortage that copies nothing.)
-Replicates(d) == \E k \in 1..Len(d.tasks) : Len(d.tasks[k].nodes) > 0
-Quiet(hs) == \A n \in hs : LET d == Decide27(n, hs, {}, {}) IN ~Replicates(d) /\ d.del = "none"
-NoTasks(hs) == \A n \in hs : ~Replicates(Decide27(n, hs, {}, {}))
- \* a check "replicates" when it hands the replicator a task with at least one candidate node. (With overlapping
-\* rules the code as found keeps calling the replicator with an EMPTY candidate list: a holder remembered from
-\* an earlier rule does not lower the shortage of a later rule - a phantom shortage that copies nothing.)
-Replicates(d) == \E k \in 1..Len(d.tasks) : Len(d.tasks[k].nodes) > 0
-Quiet(hs) == \A n \in hs : LET d == Decide27(n, hs, {}, {}) IN ~Replicates(d) /\ d.del = "none"
-NoTasks(hs) == \A n \in hs : ~Replicates(Decide27(n, hs, {}, {}))
- \* a check "replicates" when it hands the replicator a task with at least one candidate node. (With overlapping
-\* rules the code as found keeps calling the replicator with an EMPTY candidate list: a holder remembered from
-\* an earlier rule does not lower the shortage of a later rule - a phantom shortage that copies nothing.)
-Replicates(d) == \E k \in 1..Len(d.tasks) : Len(d.tasks[k].nodes) > 0
-Quiet(hs) == \A n \in hs : LET d == Decide27(n, hs, {}, {}) IN ~Replicates(d) /\ d.del = "none"
-NoTasks(hs) == \A n \in hs : ~Replicates(Decide27(n, hs, {}, {}))
- \* a check "replicates" when it hands the replicator a task with at least one candidate node. (With overlapping
-\* rules the code as found keeps calling the replicator with an EMPTY candidate list: a holder remembered from
-\* an earlier rule does not lower the shortage of a later rule - a phantom shortage that copies nothing.)
-Replicates(d) == \E k \in 1..Len(d.tasks) : Len(d.tasks[k].nodes) > 0
-Quiet(hs) == \A n \in hs : LET d == Decide27(n, hs, {}, {}) IN ~Replicates(d) /\ d.del = "none"
-NoTasks(hs) == \A n \in hs : ~Replicates(Decide27(n, hs, {}, {}))
- \* a check "replicates" when it hands the replicator a task with at least one candidate node. (With overlapping
-\* rules the code as found keeps calling the replicator with an EMPTY candidate list: a holder remembered from
-\* an earlier rule does not lower the shortage of a later rule - a phantom shortage that copies nothing.)
-Replicates(d) == \E k \in 1..Len(d.tasks) : Len(d.tasks[k].nodes) > 0
-Quiet(hs) == \A n \in hs : LET d == Decide27(n, hs, {}, {}) IN ~Replicates(d) /\ d.del = "none"
-NoTasks(hs) == \A n \in hs : ~Replicates(Decide27(n, hs, {}, {}))
-R\* a check "replicates" when it hands the replicator a task with at least one candidate node. (With overlapping
-\* rules the code as found keeps calling the replicator with an EMPTY candidate list: a holder remembered from
-\* an earlier rule does not lower the shortage of a later rule - a phantom shortage that copies nothing.)
-Replicates(d) == \E k \in 1..Len(d.tasks) : Len(d.tasks[k].nodes) > 0
-Quiet(hs) == \A n \in hs : LET d == Decide27(n, hs, {}, {}) IN ~Replicates(d) /\ d.del = "none"
-NoTasks(hs) == \A n \in hs : ~Replicates(Decide27(n, hs, {}, {}))
-u\* a check "replicates" when it hands the replicator a task with at least one candidate node. (With overlapping
-\* rules the code as found keeps calling the replicator with an EMPTY candidate list: a holder remembered from
-\* an earlier rule does not lower the shortage of a later rule - a phantom shortage that copies nothing.)
-Replicates(d) == \E k \in 1..Len(d.tasks) : Len(d.tasks[k].nodes) > 0
-Quiet(hs) == \A n \in hs : LET d == Decide27(n, hs, {}, {}) IN ~Replicates(d) /\ d.del = "none"
-NoTasks(hs) == \A n \in hs : ~Replicates(Decide27(n, hs, {}, {}))
-l\* a check "replicates" when it hands the replicator a task with at least one candidate node. (With overlapping
-\* rules the code as found keeps calling the replicator with an EMPTY candidate list: a holder remembered from
-\* an earlier rule does not lower the shortage of a later rule - a phantom shortage that copies nothing.)
-Replicates(d) == \E k \in 1..Len(d.tasks) : Len(d.tasks[k].nodes) > 0
-Quiet(hs) == \A n \in hs : LET d == Decide27(n, hs, {}, {}) IN ~Replicates(d) /\ d.del = "none"
-NoTasks(hs) == \A n \in hs : ~Replicates(Decide27(n, hs, {}, {}))
-e\* a check "replicates" when it hands the replicator a task with at least one candidate node. (With overlapping
-\* rules the code as found keeps calling the replicator with an EMPTY candidate list: a holder remembered from
-\* an earlier rule does not lower the shortage of a later rule - a phantom shortage that copies nothing.)
-Replicates(d) == \E k \in 1..Len(d.tasks) : Len(d.tasks[k].nodes) > 0
-Quiet(hs) == \A n \in hs : LET d == Decide27(n, hs, {}, {}) IN ~Replicates(d) /\ d.del = "none"
-NoTasks(hs) == \A n \in hs : ~Replicates(Decide27(n, hs, {}, {}))
-C\* a check "replicates" when it hands the replicator a task with at least one candidate node. (With overlapping
-\* rules the code as found keeps calling the replicator with an EMPTY candidate list: a holder remembered from
-\* an earlier rule does not lower the shortage of a later rule - a phantom shortage that copies nothing.)
-Replicates(d) == \E k \in 1..Len(d.tasks) : Len(d.tasks[k].nodes) > 0
-Quiet(hs) == \A n \in hs : LET d == Decide27(n, hs, {}, {}) IN ~Replicates(d) /\ d.del = "none"
-NoTasks(hs) == \A n \in hs : ~Replicates(Decide27(n, hs, {}, {}))
-o\* a check "replicates" when it hands the replicator a task with at least one candidate node. (With overlapping
-\* rules the code as found keeps calling the replicator with an EMPTY candidate list: a holder remembered from
-\* an earlier rule does not lower the shortage of a later rule - a phantom shortage that copies nothing.)
-Replicates(d) == \E k \in 1..Len(d.tasks) : Len(d.tasks[k].nodes) > 0
-Quiet(hs) == \A n \in hs : LET d == Decide27(n, hs, {}, {}) IN ~Replicates(d) /\ d.del = "none"
-NoTasks(hs) == \A n \in hs : ~Replicates(Decide27(n, hs, {}, {}))
-u\* a check "replicates" when it hands the replicator a task with at least one candidate node. (With overlapping
-\* rules the code as found keeps calling the replicator with an EMPTY candidate list: a holder remembered from
-\* an earlier rule does not lower the shortage of a later rule - a phantom shortage that copies nothing.)
-Replicates(d) == \E k \in 1..Len(d.tasks) : Len(d.tasks[k].nodes) > 0
-Quiet(hs) == \A n \in hs : LET d == Decide27(n, hs, {}, {}) IN ~Replicates(d) /\ d.del = "none"
-NoTasks(hs) == \A n \in hs : ~Replicates(Decide27(n, hs, {}, {}))
-n\* a check "replicates" when it hands the replicator a task with at least one candidate node. (With overlapping
-\* rules the code as found keeps calling the replicator with an EMPTY candidate list: a holder remembered from
-\* an earlier rule does not lower the shortage of a later rule - a phantom shortage that copies nothing.)
-Replicates(d) == \E k \in 1..Len(d.tasks) : Len(d.tasks[k].nodes) > 0
-Quiet(hs) == \A n \in hs : LET d == Decide27(n, hs, {}, {}) IN ~Replicates(d) /\ d.del = "none"
-NoTasks(hs) == \A n \in hs : ~Replicates(Decide27(n, hs, {}, {}))
-t\* a check "replicates" when it hands the replicator a task with at least one candidate node. (With overlapping
-\* rules the code as found keeps calling the replicator with an EMPTY candidate list: a holder remembered from
-\* an earlier rule does not lower the shortage of a later rule - a phantom shortage that copies nothing.)
-Replicates(d) == \E k \in 1..Len(d.tasks) : Len(d.tasks[k].nodes) > 0
-Quiet(hs) == \A n \in hs : LET d == Decide27(n, hs, {}, {}) IN ~Replicates(d) /\ d.del = "none"
-NoTasks(hs) == \A n \in hs : ~Replicates(Decide27(n, hs, {}, {}))
-s\* a check "replicates" when it hands the replicator a task with at least one candidate node. (With overlapping
-\* rules the code as found keeps calling the replicator with an EMPTY candidate list: a holder remembered from
-\* an earlier rule does not lower the shortage of a later rule - a phantom shortage that copies nothing.)
-Replicates(d) == \E k \in 1..Len(d.tasks) : Len(d.tasks[k].nodes) > 0
-Quiet(hs) == \A n \in hs : LET d == Decide27(n, hs, {}, {}) IN ~Replicates(d) /\ d.del = "none"
-NoTasks(hs) == \A n \in hs : ~Replicates(Decide27(n, hs, {}, {}))
-,\* a check "replicates" when it hands the replicator a task with at least one candidate node. (With overlapping
-\* rules the code as found keeps calling the replicator with an EMPTY candidate list: a holder remembered from
-\* an earlier rule does not lower the shortage of a later rule - a phantom shortage that copies nothing.)
-Replicates(d) == \E k \in 1..Len(d.tasks) : Len(d.tasks[k].nodes) > 0
-Quiet(hs) == \A n \in hs : LET d == Decide27(n, hs, {}, {}) IN ~Replicates(d) /\ d.del = "none"
-NoTasks(hs) == \A n \in hs : ~Replicates(Decide27(n, hs, {}, {}))
- \* a check "replicates" when it hands the replicator a task with at least one candidate node. (With overlapping
-\* rules the code as found keeps calling the replicator with an EMPTY candidate list: a holder remembered from
-\* an earlier rule does not lower the shortage of a later rule - a phantom shortage that copies nothing.)
-Replicates(d) == \E k \in 1..Len(d.tasks) : Len(d.tasks[k].nodes) > 0
-Quiet(hs) == \A n \in hs : LET d == Decide27(n, hs, {}, {}) IN ~Replicates(d) /\ d.del = "none"
-NoTasks(hs) == \A n \in hs : ~Replicates(Decide27(n, hs, {}, {}))
-\\* a check "replicates" when it hands the replicator a task with at least one candidate node. (With overlapping
-\* rules the code as found keeps calling the replicator with an EMPTY candidate list: a holder remembered from
-\* an earlier rule does not lower the shortage of a later rule - a phantom shortage that copies nothing.)
-Replicates(d) == \E k \in 1..Len(d.tasks) : Len(d.tasks[k].nodes) > 0
-Quiet(hs) == \A n \in hs : LET d == Decide27(n, hs, {}, {}) IN ~Replicates(d) /\ d.del = "none"
-NoTasks(hs) == \A n \in hs : ~Replicates(Decide27(n, hs, {}, {}))
-*\* a check "replicates" when it hands the replicator a task with at least one candidate node. (With overlapping
-\* rules the code as found keeps calling the replicator with an EMPTY candidate list: a holder remembered from
-\* an earlier rule does not lower the shortage of a later rule - a phantom shortage that copies nothing.)
-Replicates(d) == \E k \in 1..Len(d.tasks) : Len(d.tasks[k].nodes) > 0
-Quiet(hs) == \A n \in hs : LET d == Decide27(n, hs, {}, {}) IN ~Replicates(d) /\ d.del = "none"
-NoTasks(hs) == \A n \in hs : ~Replicates(Decide27(n, hs, {}, {}))
- \* a check "replicates" when it hands the replicator a task with at least one candidate node. (With overlapping
-\* rules the code as found keeps calling the replicator with an EMPTY candidate list: a holder remembered from
-\* an earlier rule does not lower the shortage of a later rule - a phantom shortage that copies nothing.)
-Replicates(d) == \E k \in 1..Len(d.tasks) : Len(d.tasks[k].nodes) > 0
-Quiet(hs) == \A n \in hs : LET d == Decide27(n, hs, {}, {}) IN ~Replicates(d) /\ d.del = "none"
-NoTasks(hs) == \A n \in hs : ~Replicates(Decide27(n, hs, {}, {}))
-n\* a check "replicates" when it hands the replicator a task with at least one candidate node. (With overlapping
-\* rules the code as found keeps calling the replicator with an EMPTY candidate list: a holder remembered from
-\* an earlier rule does not lower the shortage of a later rule - a phantom shortage that copies nothing.)
-Replicates(d) == \E k \in 1..Len(d.tasks) : Len(d.tasks[k].nodes) > 0
-Quiet(hs) == \A n \in hs : LET d == Decide27(n, hs, {}, {}) IN ~Replicates(d) /\ d.del = "none"
-NoTasks(hs) == \A n \in hs : ~Replicates(Decide27(n, hs, {}, {}))
-u\* a check "replicates" when it hands the replicator a task with at least one candidate node. (With overlapping
-\* rules the code as found keeps calling the replicator with an EMPTY candidate list: a holder remembered from
-\* an earlier rule does not lower the shortage of a later rule - a phantom shortage that copies nothing.)
-Replicates(d) == \E k \in 1..Len(d.tasks) : Len(d.tasks[k].nodes) > 0
-Quiet(hs) == \A n \in hs : LET d == Decide27(n, hs, {}, {}) IN ~Replicates(d) /\ d.del = "none"
-NoTasks(hs) == \A n \in hs : ~Replicates(Decide27(n, hs, {}, {}))
-m\* a check "replicates" when it hands the replicator a task with at least one candidate node. (With overlapping
-\* rules the code as found keeps calling the replicator with an EMPTY candidate list: a holder remembered from
-\* an earlier rule does not lower the shortage of a later rule - a phantom shortage that copies nothing.)
-Replicates(d) == \E k \in 1..Len(d.tasks) : Len(d.tasks[k].nodes) > 0
-Quiet(hs) == \A n \in hs : LET d == Decide27(n, hs, {}, {}) IN ~Replicates(d) /\ d.del = "none"
-NoTasks(hs) == \A n \in hs : ~Replicates(Decide27(n, hs, {}, {}))
-b\* a check "replicates" when it hands the replicator a task with at least one candidate node. (With overlapping
-\* rules the code as found keeps calling the replicator with an EMPTY candidate list: a holder remembered from
-\* an earlier rule does not lower the shortage of a later rule - a phantom shortage that copies nothing.)
-Replicates(d) == \E k \in 1..Len(d.tasks) : Len(d.tasks[k].nodes) > 0
-Quiet(hs) == \A n \in hs : LET d == Decide27(n, hs, {}, {}) IN ~Replicates(d) /\ d.del = "none"
-NoTasks(hs) == \A n \in hs : ~Replicates(Decide27(n, hs, {}, {}))
-e\* a check "replicates" when it hands the replicator a task with at least one candidate node. (With overlapping
-\* rules the code as found keeps calling the replicator with an EMPTY candidate list: a holder remembered from
-\* an earlier rule does not lower the shortage of a later rule - a phantom shortage that copies nothing.)
-Replicates(d) == \E k \in 1..Len(d.tasks) : Len(d.tasks[k].nodes) > 0
-Quiet(hs) == \A n \in hs : LET d == Decide27(n, hs, {}, {}) IN ~Replicates(d) /\ d.del = "none"
-NoTasks(hs) == \A n \in hs : ~Replicates(Decide27(n, hs, {}, {}))
-r\* a check "replicates" when it hands the replicator a task with at least one candidate node. (With overlapping
-\* rules the code as found keeps calling the replicator with an EMPTY candidate list: a holder remembered from
-\* an earlier rule does not lower the shortage of a later rule - a phantom shortage that copies nothing.)
-Replicates(d) == \E k \in 1..Len(d.tasks) : Len(d.tasks[k].nodes) > 0
-Quiet(hs) == \A n \in hs : LET d == Decide27(n, hs, {}, {}) IN ~Replicates(d) /\ d.del = "none"
-NoTasks(hs) == \A n \in hs : ~Replicates(Decide27(n, hs, {}, {}))
-s\* a check "replicates" when it hands the replicator a task with at least one candidate node. (With overlapping
-\* rules the code as found keeps calling the replicator with an EMPTY candidate list: a holder remembered from
-\* an earlier rule does not lower the shortage of a later rule - a phantom shortage that copies nothing.)
-Replicates(d) == \E k \in 1..Len(d.tasks) : Len(d.tasks[k].nodes) > 0
-Quiet(hs) == \A n \in hs : LET d == Decide27(n, hs, {}, {}) IN ~Replicates(d) /\ d.del = "none"
-NoTasks(hs) == \A n \in hs : ~Replicates(Decide27(n, hs, {}, {}))
- \* a check "replicates" when it hands the replicator a task with at least one candidate node. (With overlapping
-\* rules the code as found keeps calling the replicator with an EMPTY candidate list: a holder remembered from
-\* an earlier rule does not lower the shortage of a later rule - a phantom shortage that copies nothing.)
-Replicates(d) == \E k \in 1..Len(d.tasks) : Len(d.tasks[k].nodes) > 0
-Quiet(hs) == \A n \in hs : LET d == Decide27(n, hs, {}, {}) IN ~Replicates(d) /\ d.del = "none"
-NoTasks(hs) == \A n \in hs : ~Replicates(Decide27(n, hs, {}, {}))
-o\* a check "replicates" when it hands the replicator a task with at least one candidate node. (With overlapping
-\* rules the code as found keeps calling the replicator with an EMPTY candidate list: a holder remembered from
-\* an earlier rule does not lower the shortage of a later rule - a phantom shortage that copies nothing.)
-Replicates(d) == \E k \in 1..Len(d.tasks) : Len(d.tasks[k].nodes) > 0
-Quiet(hs) == \A n \in hs : LET d == Decide27(n, hs, {}, {}) IN ~Replicates(d) /\ d.del = "none"
-NoTasks(hs) == \A n \in hs : ~Replicates(Decide27(n, hs, {}, {}))
-f\* a check "replicates" when it hands the replicator a task with at least one candidate node. (With overlapping
-\* rules the code as found keeps calling the replicator with an EMPTY candidate list: a holder remembered from
-\* an earlier rule does not lower the shortage of a later rule - a phantom shortage that copies nothing.)
-Replicates(d) == \E k \in 1..Len(d.tasks) : Len(d.tasks[k].nodes) > 0
-Quiet(hs) == \A n \in hs : LET d == Decide27(n, hs, {}, {}) IN ~Replicates(d) /\ d.del = "none"
-NoTasks(hs) == \A n \in hs : ~Replicates(Decide27(n, hs, {}, {}))
- \* a check "replicates" when it hands the replicator a task with at least one candidate node. (With overlapping
-\* rules the code as found keeps calling the replicator with an EMPTY candidate list: a holder remembered from
-\* an earlier rule does not lower the shortage of a later rule - a phantom shortage that copies nothing.)
-Replicates(d) == \E k \in 1..Len(d.tasks) : Len(d.tasks[k].nodes) > 0
-Quiet(hs) == \A n \in hs : LET d == Decide27(n, hs, {}, {}) IN ~Replicates(d) /\ d.del = "none"
-NoTasks(hs) == \A n \in hs : ~Replicates(Decide27(n, hs, {}, {}))
-R\* a check "replicates" when it hands the replicator a task with at least one candidate node. (With overlapping
-\* rules the code as found keeps calling the replicator with an EMPTY candidate list: a holder remembered from
-\* an earlier rule does not lower the shortage of a later rule - a phantom shortage that copies nothing.)
-Replicates(d) == \E k \in 1..Len(d.tasks) : Len(d.tasks[k].nodes) > 0
-Quiet(hs) == \A n \in hs : LET d == Decide27(n, hs, {}, {}) IN ~Replicates(d) /\ d.del = "none"
-NoTasks(hs) == \A n \in hs : ~Replicates(Decide27(n, hs, {}, {}))
-E\* a check "replicates" when it hands the replicator a task with at least one candidate node. (With overlapping
-\* rules the code as found keeps calling the replicator with an EMPTY candidate list: a holder remembered from
-\* an earlier rule does not lower the shortage of a later rule - a phantom shortage that copies nothing.)
-Replicates(d) == \E k \in 1..Len(d.tasks) : Len(d.tasks[k].nodes) > 0
-Quiet(hs) == \A n \in hs : LET d == Decide27(n, hs, {}, {}) IN ~Replicates(d) /\ d.del = "none"
-NoTasks(hs) == \A n \in hs : ~Replicates(Decide27(n, hs, {}, {}))
-P\* a check "replicates" when it hands the replicator a task with at least one candidate node. (With overlapping
-\* rules the code as found keeps calling the replicator with an EMPTY candidate list: a holder remembered from
-\* an earlier rule does not lower the shortage of a later rule - a phantom shortage that copies nothing.)
-Replicates(d) == \E k \in 1..Len(d.tasks) : Len(d.tasks[k].nodes) > 0
-Quiet(hs) == \A n \in hs : LET d == Decide27(n, hs, {}, {}) IN ~Replicates(d) /\ d.del = "none"
-NoTasks(hs) == \A n \in hs : ~Replicates(Decide27(n, hs, {}, {}))
- \* a check "replicates" when it hands the replicator a task with at least one candidate node. (With overlapping
-\* rules the code as found keeps calling the replicator with an EMPTY candidate list: a holder remembered from
-\* an earlier rule does not lower the shortage of a later rule - a phantom shortage that copies nothing.)
-Replicates(d) == \E k \in 1..Len(d.tasks) : Len(d.tasks[k].nodes) > 0
-Quiet(hs) == \A n \in hs : LET d == Decide27(n, hs, {}, {}) IN ~Replicates(d) /\ d.del = "none"
-NoTasks(hs) == \A n \in hs : ~Replicates(Decide27(n, hs, {}, {}))
-r\* a check "replicates" when it hands the replicator a task with at least one candidate node. (With overlapping
-\* rules the code as found keeps calling the replicator with an EMPTY candidate list: a holder remembered from
-\* an earlier rule does not lower the shortage of a later rule - a phantom shortage that copies nothing.)
-Replicates(d) == \E k \in 1..Len(d.tasks) : Len(d.tasks[k].nodes) > 0
-Quiet(hs) == \A n \in hs : LET d == Decide27(n, hs, {}, {}) IN ~Replicates(d) /\ d.del = "none"
-NoTasks(hs) == \A n \in hs : ~Replicates(Decide27(n, hs, {}, {}))
-u\* a check "replicates" when it hands the replicator a task with at least one candidate node. (With overlapping
-\* rules the code as found keeps calling the replicator with an EMPTY candidate list: a holder remembered from
-\* an earlier rule does not lower the shortage of a later rule - a phantom shortage that copies nothing.)
-Replicates(d) == \E k \in 1..Len(d.tasks) : Len(d.tasks[k].nodes) > 0
-Quiet(hs) == \A n \in hs : LET d == Decide27(n, hs, {}, {}) IN ~Replicates(d) /\ d.del = "none"
-NoTasks(hs) == \A n \in hs : ~Replicates(Decide27(n, hs, {}, {}))
-l\* a check "replicates" when it hands the replicator a task with at least one candidate node. (With overlapping
-\* rules the code as found keeps calling the replicator with an EMPTY candidate list: a holder remembered from
-\* an earlier rule does not lower the shortage of a later rule - a phantom shortage that copies nothing.)
-Replicates(d) == \E k \in 1..Len(d.tasks) : Len(d.tasks[k].nodes) > 0
-Quiet(hs) == \A n \in hs : LET d == Decide27(n, hs, {}, {}) IN ~Replicates(d) /\ d.del = "none"
-NoTasks(hs) == \A n \in hs : ~Replicates(Decide27(n, hs, {}, {}))
-e\* a check "replicates" when it hands the replicator a task with at least one candidate node. (With overlapping
-\* rules the code as found keeps calling the replicator with an EMPTY candidate list: a holder remembered from
-\* an earlier rule does not lower the shortage of a later rule - a phantom shortage that copies nothing.)
-Replicates(d) == \E k \in 1..Len(d.tasks) : Len(d.tasks[k].nodes) > 0
-Quiet(hs) == \A n \in hs : LET d == Decide27(n, hs, {}, {}) IN ~Replicates(d) /\ d.del = "none"
-NoTasks(hs) == \A n \in hs : ~Replicates(Decide27(n, hs, {}, {}))
-s\* a check "replicates" when it hands the replicator a task with at least one candidate node. (With overlapping
-\* rules the code as found keeps calling the replicator with an EMPTY candidate list: a holder remembered from
-\* an earlier rule does not lower the shortage of a later rule - a phantom shortage that copies nothing.)
-Replicates(d) == \E k \in 1..Len(d.tasks) : Len(d.tasks[k].nodes) > 0
-Quiet(hs) == \A n \in hs : LET d == Decide27(n, hs, {}, {}) IN ~Replicates(d) /\ d.del = "none"
-NoTasks(hs) == \A n \in hs : ~Replicates(Decide27(n, hs, {}, {}))
- \* a check "replicates" when it hands the replicator a task with at least one candidate node. (With overlapping
-\* rules the code as found keeps calling the replicator with an EMPTY candidate list: a holder remembered from
-\* an earlier rule does not lower the shortage of a later rule - a phantom shortage that copies nothing.)
-Replicates(d) == \E k \in 1..Len(d.tasks) : Len(d.tasks[k].nodes) > 0
-Quiet(hs) == \A n \in hs : LET d == Decide27(n, hs, {}, {}) IN ~Replicates(d) /\ d.del = "none"
-NoTasks(hs) == \A n \in hs : ~Replicates(Decide27(n, hs, {}, {}))
-e\* a check "replicates" when it hands the replicator a task with at least one candidate node. (With overlapping
-\* rules the code as found keeps calling the replicator with an EMPTY candidate list: a holder remembered from
-\* an earlier rule does not lower the shortage of a later rule - a phantom shortage that copies nothing.)
-Replicates(d) == \E k \in 1..Len(d.tasks) : Len(d.tasks[k].nodes) > 0
-Quiet(hs) == \A n \in hs : LET d == Decide27(n, hs, {}, {}) IN ~Replicates(d) /\ d.del = "none"
-NoTasks(hs) == \A n \in hs : ~Replicates(Decide27(n, hs, {}, {}))
-x\* a check "replicates" when it hands the replicator a task with at least one candidate node. (With overlapping
-\* rules the code as found keeps calling the replicator with an EMPTY candidate list: a holder remembered from
-\* an earlier rule does not lower the shortage of a later rule - a phantom shortage that copies nothing.)
-Replicates(d) == \E k \in 1..Len(d.tasks) : Len(d.tasks[k].nodes) > 0
-Quiet(hs) == \A n \in hs : LET d == Decide27(n, hs, {}, {}) IN ~Replicates(d) /\ d.del = "none"
-NoTasks(hs) == \A n \in hs : ~Replicates(Decide27(n, hs, {}, {}))
-p\* a check "replicates" when it hands the replicator a task with at least one candidate node. (With overlapping
-\* rules the code as found keeps calling the replicator with an EMPTY candidate list: a holder remembered from
-\* an earlier rule does not lower the shortage of a later rule - a phantom shortage that copies nothing.)
-Replicates(d) == \E k \in 1..Len(d.tasks) : Len(d.tasks[k].nodes) > 0
-Quiet(hs) == \A n \in hs : LET d == Decide27(n, hs, {}, {}) IN ~Replicates(d) /\ d.del = "none"
-NoTasks(hs) == \A n \in hs : ~Replicates(Decide27(n, hs, {}, {}))
-l\* a check "replicates" when it hands the replicator a task with at least one candidate node. (With overlapping
-\* rules the code as found keeps calling the replicator with an EMPTY candidate list: a holder remembered from
-\* an earlier rule does not lower the shortage of a later rule - a phantom shortage that copies nothing.)
-Replicates(d) == \E k \in 1..Len(d.tasks) : Len(d.tasks[k].nodes) > 0
-Quiet(hs) == \A n \in hs : LET d == Decide27(n, hs, {}, {}) IN ~Replicates(d) /\ d.del = "none"
-NoTasks(hs) == \A n \in hs : ~Replicates(Decide27(n, hs, {}, {}))
-o\* a check "replicates" when it hands the replicator a task with at least one candidate node. (With overlapping
-\* rules the code as found keeps calling the replicator with an EMPTY candidate list: a holder remembered from
-\* an earlier rule does not lower the shortage of a later rule - a phantom shortage that copies nothing.)
-Replicates(d) == \E k \in 1..Len(d.tasks) : Len(d.tasks[k].nodes) > 0
-Quiet(hs) == \A n \in hs : LET d == Decide27(n, hs, {}, {}) IN ~Replicates(d) /\ d.del = "none"
-NoTasks(hs) == \A n \in hs : ~Replicates(Decide27(n, hs, {}, {}))
-r\* a check "replicates" when it hands the replicator a task with at least one candidate node. (With overlapping
-\* rules the code as found keeps calling the replicator with an EMPTY candidate list: a holder remembered from
-\* an earlier rule does not lower the shortage of a later rule - a phantom shortage that copies nothing.)
-Replicates(d) == \E k \in 1..Len(d.tasks) : Len(d.tasks[k].nodes) > 0
-Quiet(hs) == \A n \in hs : LET d == Decide27(n, hs, {}, {}) IN ~Replicates(d) /\ d.del = "none"
-NoTasks(hs) == \A n \in hs : ~Replicates(Decide27(n, hs, {}, {}))
-e\* a check "replicates" when it hands the replicator a task with at least one candidate node. (With overlapping
-\* rules the code as found keeps calling the replicator with an EMPTY candidate list: a holder remembered from
-\* an earlier rule does not lower the shortage of a later rule - a phantom shortage that copies nothing.)
-Replicates(d) == \E k \in 1..Len(d.tasks) : Len(d.tasks[k].nodes) > 0
-Quiet(hs) == \A n \in hs : LET d == Decide27(n, hs, {}, {}) IN ~Replicates(d) /\ d.del = "none"
-NoTasks(hs) == \A n \in hs : ~Replicates(Decide27(n, hs, {}, {}))
-d\* a check "replicates" when it hands the replicator a task with at least one candidate node. (With overlapping
-\* rules the code as found keeps calling the replicator with an EMPTY candidate list: a holder remembered from
-\* an earlier rule does not lower the shortage of a later rule - a phantom shortage that copies nothing.)
-Replicates(d) == \E k \in 1..Len(d.tasks) : Len(d.tasks[k].nodes) > 0
-Quiet(hs) == \A n \in hs : LET d == Decide27(n, hs, {}, {}) IN ~Replicates(d) /\ d.del = "none"
-NoTasks(hs) == \A n \in hs : ~Replicates(Decide27(n, hs, {}, {}))
-,\* a check "replicates" when it hands the replicator a task with at least one candidate node. (With overlapping
-\* rules the code as found keeps calling the replicator with an EMPTY candidate list: a holder remembered from
-\* an earlier rule does not lower the shortage of a later rule - a phantom shortage that copies nothing.)
-Replicates(d) == \E k \in 1..Len(d.tasks) : Len(d.tasks[k].nodes) > 0
-Quiet(hs) == \A n \in hs : LET d == Decide27(n, hs, {}, {}) IN ~Replicates(d) /\ d.del = "none"
-NoTasks(hs) == \A n \in hs : ~Replicates(Decide27(n, hs, {}, {}))
- \* a check "replicates" when it hands the replicator a task with at least one candidate node. (With overlapping
-\* rules the code as found keeps calling the replicator with an EMPTY candidate list: a holder remembered from
-\* an earlier rule does not lower the shortage of a later rule - a phantom shortage that copies nothing.)
-Replicates(d) == \E k \in 1..Len(d.tasks) : Len(d.tasks[k].nodes) > 0
-Quiet(hs) == \A n \in hs : LET d == Decide27(n, hs, {}, {}) IN ~Replicates(d) /\ d.del = "none"
-NoTasks(hs) == \A n \in hs : ~Replicates(Decide27(n, hs, {}, {}))
-e\* a check "replicates" when it hands the replicator a task with at least one candidate node. (With overlapping
-\* rules the code as found keeps calling the replicator with an EMPTY candidate list: a holder remembered from
-\* an earlier rule does not lower the shortage of a later rule - a phantom shortage that copies nothing.)
-Replicates(d) == \E k \in 1..Len(d.tasks) : Len(d.tasks[k].nodes) > 0
-Quiet(hs) == \A n \in hs : LET d == Decide27(n, hs, {}, {}) IN ~Replicates(d) /\ d.del = "none"
-NoTasks(hs) == \A n \in hs : ~Replicates(Decide27(n, hs, {}, {}))
-.\* a check "replicates" when it hands the replicator a task with at least one candidate node. (With overlapping
-\* rules the code as found keeps calling the replicator with an EMPTY candidate list: a holder remembered from
-\* an earlier rule does not lower the shortage of a later rule - a phantom shortage that copies nothing.)
-Replicates(d) == \E k \in 1..Len(d.tasks) : Len(d.tasks[k].nodes) > 0
-Quiet(hs) == \A n \in hs : LET d == Decide27(n, hs, {}, {}) IN ~Replicates(d) /\ d.del = "none"
-NoTasks(hs) == \A n \in hs : ~Replicates(Decide27(n, hs, {}, {}))
-g\* a check "replicates" when it hands the replicator a task with at least one candidate node. (With overlapping
-\* rules the code as found keeps calling the replicator with an EMPTY candidate list: a holder remembered from
-\* an earlier rule does not lower the shortage of a later rule - a phantom shortage that copies nothing.)
-Replicates(d) == \E k \in 1..Len(d.tasks) : Len(d.tasks[k].nodes) > 0
-Quiet(hs) == \A n \in hs : LET d == Decide27(n, hs, {}, {}) IN ~Replicates(d) /\ d.del = "none"
-NoTasks(hs) == \A n \in hs : ~Replicates(Decide27(n, hs, {}, {}))
-.\* a check "replicates" when it hands the replicator a task with at least one candidate node. (With overlapping
-\* rules the code as found keeps calling the replicator with an EMPTY candidate list: a holder remembered from
-\* an earlier rule does not lower the shortage of a later rule - a phantom shortage that copies nothing.)
-Replicates(d) == \E k \in 1..Len(d.tasks) : Len(d.tasks[k].nodes) > 0
-Quiet(hs) == \A n \in hs : LET d == Decide27(n, hs, {}, {}) IN ~Replicates(d) /\ d.del = "none"
-NoTasks(hs) == \A n \in hs : ~Replicates(Decide27(n, hs, {}, {}))
- \* a check "replicates" when it hands the replicator a task with at least one candidate node. (With overlapping
-\* rules the code as found keeps calling the replicator with an EMPTY candidate list: a holder remembered from
-\* an earlier rule does not lower the shortage of a later rule - a phantom shortage that copies nothing.)
-Replicates(d) == \E k \in 1..Len(d.tasks) : Len(d.tasks[k].nodes) > 0
-Quiet(hs) == \A n \in hs : LET d == Decide27(n, hs, {}, {}) IN ~Replicates(d) /\ d.del = "none"
-NoTasks(hs) == \A n \in hs : ~Replicates(Decide27(n, hs, {}, {}))
-{\* a check "replicates" when it hands the replicator a task with at least one candidate node. (With overlapping
-\* rules the code as found keeps calling the replicator with an EMPTY candidate list: a holder remembered from
-\* an earlier rule does not lower the shortage of a later rule - a phantom shortage that copies nothing.)
-Replicates(d) == \E k \in 1..Len(d.tasks) : Len(d.tasks[k].nodes) > 0
-Quiet(hs) == \A n \in hs : LET d == Decide27(n, hs, {}, {}) IN ~Replicates(d) /\ d.del = "none"
-NoTasks(hs) == \A n \in hs : ~Replicates(Decide27(n, hs, {}, {}))
-1\* a check "replicates" when it hands the replicator a task with at least one candidate node. (With overlapping
-\* rules the code as found keeps calling the replicator with an EMPTY candidate list: a holder remembered from
-\* an earlier rule does not lower the shortage of a later rule - a phantom shortage that copies nothing.)
-Replicates(d) == \E k \in 1..Len(d.tasks) : Len(d.tasks[k].nodes) > 0
-Quiet(hs) == \A n \in hs : LET d == Decide27(n, hs, {}, {}) IN ~Replicates(d) /\ d.del = "none"
-NoTasks(hs) == \A n \in hs : ~Replicates(Decide27(n, hs, {}, {}))
-}\* a check "replicates" when it hands the replicator a task with at least one candidate node. (With overlapping
-\* rules the code as found keeps calling the replicator with an EMPTY candidate list: a holder remembered from
-\* an earlier rule does not lower the shortage of a later rule - a phantom shortage that copies nothing.)
-Replicates(d) == \E k \in 1..Len(d.tasks) : Len(d.tasks[k].nodes) > 0
-Quiet(hs) == \A n \in hs : LET d == Decide27(n, hs, {}, {}) IN ~Replicates(d) /\ d.del = "none"
-NoTasks(hs) == \A n \in hs : ~Replicates(Decide27(n, hs, {}, {}))
- \* a check "replicates" when it hands the replicator a task with at least one candidate node. (With overlapping
-\* rules the code as found keeps calling the replicator with an EMPTY candidate list: a holder remembered from
-\* an earlier rule does not lower the shortage of a later rule - a phantom shortage that copies nothing.)
-Replicates(d) == \E k \in 1..Len(d.tasks) : Len(d.tasks[k].nodes) > 0
-Quiet(hs) == \A n \in hs : LET d == Decide27(n, hs, {}, {}) IN ~Replicates(d) /\ d.del = "none"
-NoTasks(hs) == \A n \in hs : ~Replicates(Decide27(n, hs, {}, {}))
-o\* a check "replicates" when it hands the replicator a task with at least one candidate node. (With overlapping
-\* rules the code as found keeps calling the replicator with an EMPTY candidate list: a holder remembered from
-\* an earlier rule does not lower the shortage of a later rule - a phantom shortage that copies nothing.)
-Replicates(d) == \E k \in 1..Len(d.tasks) : Len(d.tasks[k].nodes) > 0
-Quiet(hs) == \A n \in hs : LET d == Decide27(n, hs, {}, {}) IN ~Replicates(d) /\ d.del = "none"
-NoTasks(hs) == \A n \in hs : ~Replicates(Decide27(n, hs, {}, {}))
-r\* a check "replicates" when it hands the replicator a task with at least one candidate node. (With overlapping
-\* rules the code as found keeps calling the replicator with an EMPTY candidate list: a holder remembered from
-\* an earlier rule does not lower the shortage of a later rule - a phantom shortage that copies nothing.)
-Replicates(d) == \E k \in 1..Len(d.tasks) : Len(d.tasks[k].nodes) > 0
-Quiet(hs) == \A n \in hs : LET d == Decide27(n, hs, {}, {}) IN ~Replicates(d) /\ d.del = "none"
-NoTasks(hs) == \A n \in hs : ~Replicates(Decide27(n, hs, {}, {}))
- \* a check "replicates" when it hands the replicator a task with at least one candidate node. (With overlapping
-\* rules the code as found keeps calling the replicator with an EMPTY candidate list: a holder remembered from
-\* an earlier rule does not lower the shortage of a later rule - a phantom shortage that copies nothing.)
-Replicates(d) == \E k \in 1..Len(d.tasks) : Len(d.tasks[k].nodes) > 0
-Quiet(hs) == \A n \in hs : LET d == Decide27(n, hs, {}, {}) IN ~Replicates(d) /\ d.del = "none"
-NoTasks(hs) == \A n \in hs : ~Replicates(Decide27(n, hs, {}, {}))
-{\* a check "replicates" when it hands the replicator a task with at least one candidate node. (With overlapping
-\* rules the code as found keeps calling the replicator with an EMPTY candidate list: a holder remembered from
-\* an earlier rule does not lower the shortage of a later rule - a phantom shortage that copies nothing.)
-Replicates(d) == \E k \in 1..Len(d.tasks) : Len(d.tasks[k].nodes) > 0
-Quiet(hs) == \A n \in hs : LET d == Decide27(n, hs, {}, {}) IN ~Replicates(d) /\ d.del = "none"
-NoTasks(hs) == \A n \in hs : ~Replicates(Decide27(n, hs, {}, {}))
-2\* a check "replicates" when it hands the replicator a task with at least one candidate node. (With overlapping
-\* rules the code as found keeps calling the replicator with an EMPTY candidate list: a holder remembered from
-\* an earlier rule does not lower the shortage of a later rule - a phantom shortage that copies nothing.)
-Replicates(d) == \E k \in 1..Len(d.tasks) : Len(d.tasks[k].nodes) > 0
-Quiet(hs) == \A n \in hs : LET d == Decide27(n, hs, {}, {}) IN ~Replicates(d) /\ d.del = "none"
-NoTasks(hs) == \A n \in hs : ~Replicates(Decide27(n, hs, {}, {}))
-}\* a check "replicates" when it hands the replicator a task with at least one candidate node. (With overlapping
-\* rules the code as found keeps calling the replicator with an EMPTY candidate list: a holder remembered from
-\* an earlier rule does not lower the shortage of a later rule - a phantom shortage that copies nothing.)
-Replicates(d) == \E k \in 1..Len(d.tasks) : Len(d.tasks[k].nodes) > 0
-Quiet(hs) == \A n \in hs : LET d == Decide27(n, hs, {}, {}) IN ~Replicates(d) /\ d.del = "none"
-NoTasks(hs) == \A n \in hs : ~Replicates(Decide27(n, hs, {}, {}))
-
-\* a check "replicates" when it hands the replicator a task with at least one candidate node. (With overlapping
-\* rules the code as found keeps calling the replicator with an EMPTY candidate list: a holder remembered from
-\* an earlier rule does not lower the shortage of a later rule - a phantom shortage that copies nothing.)
-Replicates(d) == \E k \in 1..Len(d.tasks) : Len(d.tasks[k].nodes) > 0
-Quiet(hs) == \A n \in hs : LET d == Decide27(n, hs, {}, {}) IN ~Replicates(d) /\ d.del = "none"
-NoTasks(hs) == \A n \in hs : ~Replicates(Decide27(n, hs, {}, {}))
- \* a check "replicates" when it hands the replicator a task with at least one candidate node. (With overlapping
-\* rules the code as found keeps calling the replicator with an EMPTY candidate list: a holder remembered from
-\* an earlier rule does not lower the shortage of a later rule - a phantom shortage that copies nothing.)
-Replicates(d) == \E k \in 1..Len(d.tasks) : Len(d.tasks[k].nodes) > 0
-Quiet(hs) == \A n \in hs : LET d == Decide27(n, hs, {}, {}) IN ~Replicates(d) /\ d.del = "none"
-NoTasks(hs) == \A n \in hs : ~Replicates(Decide27(n, hs, {}, {}))
- \* a check "replicates" when it hands the replicator a task with at least one candidate node. (With overlapping
-\* rules the code as found keeps calling the replicator with an EMPTY candidate list: a holder remembered from
-\* an earlier rule does not lower the shortage of a later rule - a phantom shortage that copies nothing.)
-Replicates(d) == \E k \in 1..Len(d.tasks) : Len(d.tasks[k].nodes) > 0
-Quiet(hs) == \A n \in hs : LET d == Decide27(n, hs, {}, {}) IN ~Replicates(d) /\ d.del = "none"
-NoTasks(hs) == \A n \in hs : ~Replicates(Decide27(n, hs, {}, {}))
- \* a check "replicates" when it hands the replicator a task with at least one candidate node. (With overlapping
-\* rules the code as found keeps calling the replicator with an EMPTY candidate list: a holder remembered from
-\* an earlier rule does not lower the shortage of a later rule - a phantom shortage that copies nothing.)
-Replicates(d) == \E k \in 1..Len(d.tasks) : Len(d.tasks[k].nodes) > 0
-Quiet(hs) == \A n \in hs : LET d == Decide27(n, hs, {}, {}) IN ~Replicates(d) /\ d.del = "none"
-NoTasks(hs) == \A n \in hs : ~Replicates(Decide27(n, hs, {}, {}))
- \* a check "replicates" when it hands the replicator a task with at least one candidate node. (With overlapping
-\* rules the code as found keeps calling the replicator with an EMPTY candidate list: a holder remembered from
-\* an earlier rule does not lower the shortage of a later rule - a phantom shortage that copies nothing.)
-Replicates(d) == \E k \in 1..Len(d.tasks) : Len(d.tasks[k].nodes) > 0
-Quiet(hs) == \A n \in hs : LET d == Decide27(n, hs, {}, {}) IN ~Replicates(d) /\ d.del = "none"
-NoTasks(hs) == \A n \in hs : ~Replicates(Decide27(n, hs, {}, {}))
- \* a check "replicates" when it hands the replicator a task with at least one candidate node. (With overlapping
-\* rules the code as found keeps calling the replicator with an EMPTY candidate list: a holder remembered from
-\* an earlier rule does not lower the shortage of a later rule - a phantom shortage that copies nothing.)
-Replicates(d) == \E k \in 1..Len(d.tasks) : Len(d.tasks[k].nodes) > 0
-Quiet(hs) == \A n \in hs : LET d == Decide27(n, hs, {}, {}) IN ~Replicates(d) /\ d.del = "none"
-NoTasks(hs) == \A n \in hs : ~Replicates(Decide27(n, hs, {}, {}))
- \* a check "replicates" when it hands the replicator a task with at least one candidate node. (With overlapping
-\* rules the code as found keeps calling the replicator with an EMPTY candidate list: a holder remembered from
-\* an earlier rule does not lower the shortage of a later rule - a phantom shortage that copies nothing.)
-Replicates(d) == \E k \in 1..Len(d.tasks) : Len(d.tasks[k].nodes) > 0
-Quiet(hs) == \A n \in hs : LET d == Decide27(n, hs, {}, {}) IN ~Replicates(d) /\ d.del = "none"
-NoTasks(hs) == \A n \in hs : ~Replicates(Decide27(n, hs, {}, {}))
- \* a check "replicates" when it hands the replicator a task with at least one candidate node. (With overlapping
-\* rules the code as found keeps calling the replicator with an EMPTY candidate list: a holder remembered from
-\* an earlier rule does not lower the shortage of a later rule - a phantom shortage that copies nothing.)
-Replicates(d) == \E k \in 1..Len(d.tasks) : Len(d.tasks[k].nodes) > 0
-Quiet(hs) == \A n \in hs : LET d == Decide27(n, hs, {}, {}) IN ~Replicates(d) /\ d.del = "none"
-NoTasks(hs) == \A n \in hs : ~Replicates(Decide27(n, hs, {}, {}))
- \* a check "replicates" when it hands the replicator a task with at least one candidate node. (With overlapping
-\* rules the code as found keeps calling the replicator with an EMPTY candidate list: a holder remembered from
-\* an earlier rule does not lower the shortage of a later rule - a phantom shortage that copies nothing.)
-Replicates(d) == \E k \in 1..Len(d.tasks) : Len(d.tasks[k].nodes) > 0
-Quiet(hs) == \A n \in hs : LET d == Decide27(n, hs, {}, {}) IN ~Replicates(d) /\ d.del = "none"
-NoTasks(hs) == \A n \in hs : ~Replicates(Decide27(n, hs, {}, {}))
- \* a check "replicates" when it hands the replicator a task with at least one candidate node. (With overlapping
-\* rules the code as found keeps calling the replicator with an EMPTY candidate list: a holder remembered from
-\* an earlier rule does not lower the shortage of a later rule - a phantom shortage that copies nothing.)
-Replicates(d) == \E k \in 1..Len(d.tasks) : Len(d.tasks[k].nodes) > 0
-Quiet(hs) == \A n \in hs : LET d == Decide27(n, hs, {}, {}) IN ~Replicates(d) /\ d.del = "none"
-NoTasks(hs) == \A n \in hs : ~Replicates(Decide27(n, hs, {}, {}))
- \* a check "replicates" when it hands the replicator a task with at least one candidate node. (With overlapping
-\* rules the code as found keeps calling the replicator with an EMPTY candidate list: a holder remembered from
-\* an earlier rule does not lower the shortage of a later rule - a phantom shortage that copies nothing.)
-Replicates(d) == \E k \in 1..Len(d.tasks) : Len(d.tasks[k].nodes) > 0
-Quiet(hs) == \A n \in hs : LET d == Decide27(n, hs, {}, {}) IN ~Replicates(d) /\ d.del = "none"
-NoTasks(hs) == \A n \in hs : ~Replicates(Decide27(n, hs, {}, {}))
-L\* a check "replicates" when it hands the replicator a task with at least one candidate node. (With overlapping
-\* rules the code as found keeps calling the replicator with an EMPTY candidate list: a holder remembered from
-\* an earlier rule does not lower the shortage of a later rule - a phantom shortage that copies nothing.)
-Replicates(d) == \E k \in 1..Len(d.tasks) : Len(d.tasks[k].nodes) > 0
-Quiet(hs) == \A n \in hs : LET d == Decide27(n, hs, {}, {}) IN ~Replicates(d) /\ d.del = "none"
-NoTasks(hs) == \A n \in hs : ~Replicates(Decide27(n, hs, {}, {}))
-i\* a check "replicates" when it hands the replicator a task with at least one candidate node. (With overlapping
-\* rules the code as found keeps calling the replicator with an EMPTY candidate list: a holder remembered from
-\* an earlier rule does not lower the shortage of a later rule - a phantom shortage that copies nothing.)
-Replicates(d) == \E k \in 1..Len(d.tasks) : Len(d.tasks[k].nodes) > 0
-Quiet(hs) == \A n \in hs : LET d == Decide27(n, hs, {}, {}) IN ~Replicates(d) /\ d.del = "none"
-NoTasks(hs) == \A n \in hs : ~Replicates(Decide27(n, hs, {}, {}))
-s\* a check "replicates" when it hands the replicator a task with at least one candidate node. (With overlapping
-\* rules the code as found keeps calling the replicator with an EMPTY candidate list: a holder remembered from
-\* an earlier rule does not lower the shortage of a later rule - a phantom shortage that copies nothing.)
-Replicates(d) == \E k \in 1..Len(d.tasks) : Len(d.tasks[k].nodes) > 0
-Quiet(hs) == \A n \in hs : LET d == Decide27(n, hs, {}, {}) IN ~Replicates(d) /\ d.del = "none"
-NoTasks(hs) == \A n \in hs : ~Replicates(Decide27(n, hs, {}, {}))
-t\* a check "replicates" when it hands the replicator a task with at least one candidate node. (With overlapping
-\* rules the code as found keeps calling the replicator with an EMPTY candidate list: a holder remembered from
-\* an earlier rule does not lower the shortage of a later rule - a phantom shortage that copies nothing.)
-Replicates(d) == \E k \in 1..Len(d.tasks) : Len(d.tasks[k].nodes) > 0
-Quiet(hs) == \A n \in hs : LET d == Decide27(n, hs, {}, {}) IN ~Replicates(d) /\ d.del = "none"
-NoTasks(hs) == \A n \in hs : ~Replicates(Decide27(n, hs, {}, {}))
-L\* a check "replicates" when it hands the replicator a task with at least one candidate node. (With overlapping
-\* rules the code as found keeps calling the replicator with an EMPTY candidate list: a holder remembered from
-\* an earlier rule does not lower the shortage of a later rule - a phantom shortage that copies nothing.)
-Replicates(d) == \E k \in 1..Len(d.tasks) : Len(d.tasks[k].nodes) > 0
-Quiet(hs) == \A n \in hs : LET d == Decide27(n, hs, {}, {}) IN ~Replicates(d) /\ d.del = "none"
-NoTasks(hs) == \A n \in hs : ~Replicates(Decide27(n, hs, {}, {}))
-e\* a check "replicates" when it hands the replicator a task with at least one candidate node. (With overlapping
-\* rules the code as found keeps calling the replicator with an EMPTY candidate list: a holder remembered from
-\* an earlier rule does not lower the shortage of a later rule - a phantom shortage that copies nothing.)
-Replicates(d) == \E k \in 1..Len(d.tasks) : Len(d.tasks[k].nodes) > 0
-Quiet(hs) == \A n \in hs : LET d == Decide27(n, hs, {}, {}) IN ~Replicates(d) /\ d.del = "none"
-NoTasks(hs) == \A n \in hs : ~Replicates(Decide27(n, hs, {}, {}))
-n\* a check "replicates" when it hands the replicator a task with at least one candidate node. (With overlapping
-\* rules the code as found keeps calling the replicator with an EMPTY candidate list: a holder remembered from
-\* an earlier rule does not lower the shortage of a later rule - a phantom shortage that copies nothing.)
-Replicates(d) == \E k \in 1..Len(d.tasks) : Len(d.tasks[k].nodes) > 0
-Quiet(hs) == \A n \in hs : LET d == Decide27(n, hs, {}, {}) IN ~Replicates(d) /\ d.del = "none"
-NoTasks(hs) == \A n \in hs : ~Replicates(Decide27(n, hs, {}, {}))
-s\* a check "replicates" when it hands the replicator a task with at least one candidate node. (With overlapping
-\* rules the code as found keeps calling the replicator with an EMPTY candidate list: a holder remembered from
-\* an earlier rule does not lower the shortage of a later rule - a phantom shortage that copies nothing.)
-Replicates(d) == \E k \in 1..Len(d.tasks) : Len(d.tasks[k].nodes) > 0
-Quiet(hs) == \A n \in hs : LET d == Decide27(n, hs, {}, {}) IN ~Replicates(d) /\ d.del = "none"
-NoTasks(hs) == \A n \in hs : ~Replicates(Decide27(n, hs, {}, {}))
-,\* a check "replicates" when it hands the replicator a task with at least one candidate node. (With overlapping
-\* rules the code as found keeps calling the replicator with an EMPTY candidate list: a holder remembered from
-\* an earlier rule does not lower the shortage of a later rule - a phantom shortage that copies nothing.)
-Replicates(d) == \E k \in 1..Len(d.tasks) : Len(d.tasks[k].nodes) > 0
-Quiet(hs) == \A n \in hs : LET d == Decide27(n, hs, {}, {}) IN ~Replicates(d) /\ d.del = "none"
-NoTasks(hs) == \A n \in hs : ~Replicates(Decide27(n, hs, {}, {}))
- \* a check "replicates" when it hands the replicator a task with at least one candidate node. (With overlapping
-\* rules the code as found keeps calling the replicator with an EMPTY candidate list: a holder remembered from
-\* an earlier rule does not lower the shortage of a later rule - a phantom shortage that copies nothing.)
-Replicates(d) == \E k \in 1..Len(d.tasks) : Len(d.tasks[k].nodes) > 0
-Quiet(hs) == \A n \in hs : LET d == Decide27(n, hs, {}, {}) IN ~Replicates(d) /\ d.del = "none"
-NoTasks(hs) == \A n \in hs : ~Replicates(Decide27(n, hs, {}, {}))
- \* a check "replicates" when it hands the replicator a task with at least one candidate node. (With overlapping
-\* rules the code as found keeps calling the replicator with an EMPTY candidate list: a holder remembered from
-\* an earlier rule does not lower the shortage of a later rule - a phantom shortage that copies nothing.)
-Replicates(d) == \E k \in 1..Len(d.tasks) : Len(d.tasks[k].nodes) > 0
-Quiet(hs) == \A n \in hs : LET d == Decide27(n, hs, {}, {}) IN ~Replicates(d) /\ d.del = "none"
-NoTasks(hs) == \A n \in hs : ~Replicates(Decide27(n, hs, {}, {}))
- \* a check "replicates" when it hands the replicator a task with at least one candidate node. (With overlapping
-\* rules the code as found keeps calling the replicator with an EMPTY candidate list: a holder remembered from
-\* an earlier rule does not lower the shortage of a later rule - a phantom shortage that copies nothing.)
-Replicates(d) == \E k \in 1..Len(d.tasks) : Len(d.tasks[k].nodes) > 0
-Quiet(hs) == \A n \in hs : LET d == Decide27(n, hs, {}, {}) IN ~Replicates(d) /\ d.del = "none"
-NoTasks(hs) == \A n \in hs : ~Replicates(Decide27(n, hs, {}, {}))
-\\* a check "replicates" when it hands the replicator a task with at least one candidate node. (With overlapping
-\* rules the code as found keeps calling the replicator with an EMPTY candidate list: a holder remembered from
-\* an earlier rule does not lower the shortage of a later rule - a phantom shortage that copies nothing.)
-Replicates(d) == \E k \in 1..Len(d.tasks) : Len(d.tasks[k].nodes) > 0
-Quiet(hs) == \A n \in hs : LET d == Decide27(n, hs, {}, {}) IN ~Replicates(d) /\ d.del = "none"
-NoTasks(hs) == \A n \in hs : ~Replicates(Decide27(n, hs, {}, {}))
-*\* a check "replicates" when it hands the replicator a task with at least one candidate node. (With overlapping
-\* rules the code as found keeps calling the replicator with an EMPTY candidate list: a holder remembered from
-\* an earlier rule does not lower the shortage of a later rule - a phantom shortage that copies nothing.)
-Replicates(d) == \E k \in 1..Len(d.tasks) : Len(d.tasks[k].nodes) > 0
-Quiet(hs) == \A n \in hs : LET d == Decide27(n, hs, {}, {}) IN ~Replicates(d) /\ d.del = "none"
-NoTasks(hs) == \A n \in hs : ~Replicates(Decide27(n, hs, {}, {}))
- \* a check "replicates" when it hands the replicator a task with at least one candidate node. (With overlapping
-\* rules the code as found keeps calling the replicator with an EMPTY candidate list: a holder remembered from
-\* an earlier rule does not lower the shortage of a later rule - a phantom shortage that copies nothing.)
-Replicates(d) == \E k \in 1..Len(d.tasks) : Len(d.tasks[k].nodes) > 0
-Quiet(hs) == \A n \in hs : LET d == Decide27(n, hs, {}, {}) IN ~Replicates(d) /\ d.del = "none"
-NoTasks(hs) == \A n \in hs : ~Replicates(Decide27(n, hs, {}, {}))
-l\* a check "replicates" when it hands the replicator a task with at least one candidate node. (With overlapping
-\* rules the code as found keeps calling the replicator with an EMPTY candidate list: a holder remembered from
-\* an earlier rule does not lower the shortage of a later rule - a phantom shortage that copies nothing.)
-Replicates(d) == \E k \in 1..Len(d.tasks) : Len(d.tasks[k].nodes) > 0
-Quiet(hs) == \A n \in hs : LET d == Decide27(n, hs, {}, {}) IN ~Replicates(d) /\ d.del = "none"
-NoTasks(hs) == \A n \in hs : ~Replicates(Decide27(n, hs, {}, {}))
-e\* a check "replicates" when it hands the replicator a task with at least one candidate node. (With overlapping
-\* rules the code as found keeps calling the replicator with an EMPTY candidate list: a holder remembered from
-\* an earlier rule does not lower the shortage of a later rule - a phantom shortage that copies nothing.)
-Replicates(d) == \E k \in 1..Len(d.tasks) : Len(d.tasks[k].nodes) > 0
-Quiet(hs) == \A n \in hs : LET d == Decide27(n, hs, {}, {}) IN ~Replicates(d) /\ d.del = "none"
-NoTasks(hs) == \A n \in hs : ~Replicates(Decide27(n, hs, {}, {}))
-n\* a check "replicates" when it hands the replicator a task with at least one candidate node. (With overlapping
-\* rules the code as found keeps calling the replicator with an EMPTY candidate list: a holder remembered from
-\* an earlier rule does not lower the shortage of a later rule - a phantom shortage that copies nothing.)
-Replicates(d) == \E k \in 1..Len(d.tasks) : Len(d.tasks[k].nodes) > 0
-Quiet(hs) == \A n \in hs : LET d == Decide27(n, hs, {}, {}) IN ~Replicates(d) /\ d.del = "none"
-NoTasks(hs) == \A n \in hs : ~Replicates(Decide27(n, hs, {}, {}))
-g\* a check "replicates" when it hands the replicator a task with at least one candidate node. (With overlapping
-\* rules the code as found keeps calling the replicator with an EMPTY candidate list: a holder remembered from
-\* an earlier rule does not lower the shortage of a later rule - a phantom shortage that copies nothing.)
-Replicates(d) == \E k \in 1..Len(d.tasks) : Len(d.tasks[k].nodes) > 0
-Quiet(hs) == \A n \in hs : LET d == Decide27(n, hs, {}, {}) IN ~Replicates(d) /\ d.del = "none"
-NoTasks(hs) == \A n \in hs : ~Replicates(Decide27(n, hs, {}, {}))
-t\* a check "replicates" when it hands the replicator a task with at least one candidate node. (With overlapping
-\* rules the code as found keeps calling the replicator with an EMPTY candidate list: a holder remembered from
-\* an earlier rule does not lower the shortage of a later rule - a phantom shortage that copies nothing.)
-Replicates(d) == \E k \in 1..Len(d.tasks) : Len(d.tasks[k].nodes) > 0
-Quiet(hs) == \A n \in hs : LET d == Decide27(n, hs, {}, {}) IN ~Replicates(d) /\ d.del = "none"
-NoTasks(hs) == \A n \in hs : ~Replicates(Decide27(n, hs, {}, {}))
-h\* a check "replicates" when it hands the replicator a task with at least one candidate node. (With overlapping
-\* rules the code as found keeps calling the replicator with an EMPTY candidate list: a holder remembered from
-\* an earlier rule does not lower the shortage of a later rule - a phantom shortage that copies nothing.)
-Replicates(d) == \E k \in 1..Len(d.tasks) : Len(d.tasks[k].nodes) > 0
-Quiet(hs) == \A n \in hs : LET d == Decide27(n, hs, {}, {}) IN ~Replicates(d) /\ d.del = "none"
-NoTasks(hs) == \A n \in hs : ~Replicates(Decide27(n, hs, {}, {}))
-s\* a check "replicates" when it hands the replicator a task with at least one candidate node. (With overlapping
-\* rules the code as found keeps calling the replicator with an EMPTY candidate list: a holder remembered from
-\* an earlier rule does not lower the shortage of a later rule - a phantom shortage that copies nothing.)
-Replicates(d) == \E k \in 1..Len(d.tasks) : Len(d.tasks[k].nodes) > 0
-Quiet(hs) == \A n \in hs : LET d == Decide27(n, hs, {}, {}) IN ~Replicates(d) /\ d.del = "none"
-NoTasks(hs) == \A n \in hs : ~Replicates(Decide27(n, hs, {}, {}))
- \* a check "replicates" when it hands the replicator a task with at least one candidate node. (With overlapping
-\* rules the code as found keeps calling the replicator with an EMPTY candidate list: a holder remembered from
-\* an earlier rule does not lower the shortage of a later rule - a phantom shortage that copies nothing.)
-Replicates(d) == \E k \in 1..Len(d.tasks) : Len(d.tasks[k].nodes) > 0
-Quiet(hs) == \A n \in hs : LET d == Decide27(n, hs, {}, {}) IN ~Replicates(d) /\ d.del = "none"
-NoTasks(hs) == \A n \in hs : ~Replicates(Decide27(n, hs, {}, {}))
-o\* a check "replicates" when it hands the replicator a task with at least one candidate node. (With overlapping
-\* rules the code as found keeps calling the replicator with an EMPTY candidate list: a holder remembered from
-\* an earlier rule does not lower the shortage of a later rule - a phantom shortage that copies nothing.)
-Replicates(d) == \E k \in 1..Len(d.tasks) : Len(d.tasks[k].nodes) > 0
-Quiet(hs) == \A n \in hs : LET d == Decide27(n, hs, {}, {}) IN ~Replicates(d) /\ d.del = "none"
-NoTasks(hs) == \A n \in hs : ~Replicates(Decide27(n, hs, {}, {}))
-f\* a check "replicates" when it hands the replicator a task with at least one candidate node. (With overlapping
-\* rules the code as found keeps calling the replicator with an EMPTY candidate list: a holder remembered from
-\* an earlier rule does not lower the shortage of a later rule - a phantom shortage that copies nothing.)
-Replicates(d) == \E k \in 1..Len(d.tasks) : Len(d.tasks[k].nodes) > 0
-Quiet(hs) == \A n \in hs : LET d == Decide27(n, hs, {}, {}) IN ~Replicates(d) /\ d.del = "none"
-NoTasks(hs) == \A n \in hs : ~Replicates(Decide27(n, hs, {}, {}))
- \* a check "replicates" when it hands the replicator a task with at least one candidate node. (With overlapping
-\* rules the code as found keeps calling the replicator with an EMPTY candidate list: a holder remembered from
-\* an earlier rule does not lower the shortage of a later rule - a phantom shortage that copies nothing.)
-Replicates(d) == \E k \in 1..Len(d.tasks) : Len(d.tasks[k].nodes) > 0
-Quiet(hs) == \A n \in hs : LET d == Decide27(n, hs, {}, {}) IN ~Replicates(d) /\ d.del = "none"
-NoTasks(hs) == \A n \in hs : ~Replicates(Decide27(n, hs, {}, {}))
-n\* a check "replicates" when it hands the replicator a task with at least one candidate node. (With overlapping
-\* rules the code as found keeps calling the replicator with an EMPTY candidate list: a holder remembered from
-\* an earlier rule does not lower the shortage of a later rule - a phantom shortage that copies nothing.)
-Replicates(d) == \E k \in 1..Len(d.tasks) : Len(d.tasks[k].nodes) > 0
-Quiet(hs) == \A n \in hs : LET d == Decide27(n, hs, {}, {}) IN ~Replicates(d) /\ d.del = "none"
-NoTasks(hs) == \A n \in hs : ~Replicates(Decide27(n, hs, {}, {}))
-o\* a check "replicates" when it hands the replicator a task with at least one candidate node. (With overlapping
-\* rules the code as found keeps calling the replicator with an EMPTY candidate list: a holder remembered from
-\* an earlier rule does not lower the shortage of a later rule - a phantom shortage that copies nothing.)
-Replicates(d) == \E k \in 1..Len(d.tasks) : Len(d.tasks[k].nodes) > 0
-Quiet(hs) == \A n \in hs : LET d == Decide27(n, hs, {}, {}) IN ~Replicates(d) /\ d.del = "none"
-NoTasks(hs) == \A n \in hs : ~Replicates(Decide27(n, hs, {}, {}))
-d\* a check "replicates" when it hands the replicator a task with at least one candidate node. (With overlapping
-\* rules the code as found keeps calling the replicator with an EMPTY candidate list: a holder remembered from
-\* an earlier rule does not lower the shortage of a later rule - a phantom shortage that copies nothing.)
-Replicates(d) == \E k \in 1..Len(d.tasks) : Len(d.tasks[k].nodes) > 0
-Quiet(hs) == \A n \in hs : LET d == Decide27(n, hs, {}, {}) IN ~Replicates(d) /\ d.del = "none"
-NoTasks(hs) == \A n \in hs : ~Replicates(Decide27(n, hs, {}, {}))
-e\* a check "replicates" when it hands the replicator a task with at least one candidate node. (With overlapping
-\* rules the code as found keeps calling the replicator with an EMPTY candidate list: a holder remembered from
-\* an earlier rule does not lower the shortage of a later rule - a phantom shortage that copies nothing.)
-Replicates(d) == \E k \in 1..Len(d.tasks) : Len(d.tasks[k].nodes) > 0
-Quiet(hs) == \A n \in hs : LET d == Decide27(n, hs, {}, {}) IN ~Replicates(d) /\ d.del = "none"
-NoTasks(hs) == \A n \in hs : ~Replicates(Decide27(n, hs, {}, {}))
- \* a check "replicates" when it hands the replicator a task with at least one candidate node. (With overlapping
-\* rules the code as found keeps calling the replicator with an EMPTY candidate list: a holder remembered from
-\* an earlier rule does not lower the shortage of a later rule - a phantom shortage that copies nothing.)
-Replicates(d) == \E k \in 1..Len(d.tasks) : Len(d.tasks[k].nodes) > 0
-Quiet(hs) == \A n \in hs : LET d == Decide27(n, hs, {}, {}) IN ~Replicates(d) /\ d.del = "none"
-NoTasks(hs) == \A n \in hs : ~Replicates(Decide27(n, hs, {}, {}))
-l\* a check "replicates" when it hands the replicator a task with at least one candidate node. (With overlapping
-\* rules the code as found keeps calling the replicator with an EMPTY candidate list: a holder remembered from
-\* an earlier rule does not lower the shortage of a later rule - a phantom shortage that copies nothing.)
-Replicates(d) == \E k \in 1..Len(d.tasks) : Len(d.tasks[k].nodes) > 0
-Quiet(hs) == \A n \in hs : LET d == Decide27(n, hs, {}, {}) IN ~Replicates(d) /\ d.del = "none"
-NoTasks(hs) == \A n \in hs : ~Replicates(Decide27(n, hs, {}, {}))
-i\* a check "replicates" when it hands the replicator a task with at least one candidate node. (With overlapping
-\* rules the code as found keeps calling the replicator with an EMPTY candidate list: a holder remembered from
-\* an earlier rule does not lower the shortage of a later rule - a phantom shortage that copies nothing.)
-Replicates(d) == \E k \in 1..Len(d.tasks) : Len(d.tasks[k].nodes) > 0
-Quiet(hs) == \A n \in hs : LET d == Decide27(n, hs, {}, {}) IN ~Replicates(d) /\ d.del = "none"
-NoTasks(hs) == \A n \in hs : ~Replicates(Decide27(n, hs, {}, {}))
-s\* a check "replicates" when it hands the replicator a task with at least one candidate node. (With overlapping
-\* rules the code as found keeps calling the replicator with an EMPTY candidate list: a holder remembered from
-\* an earlier rule does not lower the shortage of a later rule - a phantom shortage that copies nothing.)
-Replicates(d) == \E k \in 1..Len(d.tasks) : Len(d.tasks[k].nodes) > 0
-Quiet(hs) == \A n \in hs : LET d == Decide27(n, hs, {}, {}) IN ~Replicates(d) /\ d.del = "none"
-NoTasks(hs) == \A n \in hs : ~Replicates(Decide27(n, hs, {}, {}))
-t\* a check "replicates" when it hands the replicator a task with at least one candidate node. (With overlapping
-\* rules the code as found keeps calling the replicator with an EMPTY candidate list: a holder remembered from
-\* an earlier rule does not lower the shortage of a later rule - a phantom shortage that copies nothing.)
-Replicates(d) == \E k \in 1..Len(d.tasks) : Len(d.tasks[k].nodes) > 0
-Quiet(hs) == \A n \in hs : LET d == Decide27(n, hs, {}, {}) IN ~Replicates(d) /\ d.del = "none"
-NoTasks(hs) == \A n \in hs : ~Replicates(Decide27(n, hs, {}, {}))
-s\* a check "replicates" when it hands the replicator a task with at least one candidate node. (With overlapping
-\* rules the code as found keeps calling the replicator with an EMPTY candidate list: a holder remembered from
-\* an earlier rule does not lower the shortage of a later rule - a phantom shortage that copies nothing.)
-Replicates(d) == \E k \in 1..Len(d.tasks) : Len(d.tasks[k].nodes) > 0
-Quiet(hs) == \A n \in hs : LET d == Decide27(n, hs, {}, {}) IN ~Replicates(d) /\ d.del = "none"
-NoTasks(hs) == \A n \in hs : ~Replicates(Decide27(n, hs, {}, {}))
- \* a check "replicates" when it hands the replicator a task with at least one candidate node. (With overlapping
-\* rules the code as found keeps calling the replicator with an EMPTY candidate list: a holder remembered from
-\* an earlier rule does not lower the shortage of a later rule - a phantom shortage that copies nothing.)
-Replicates(d) == \E k \in 1..Len(d.tasks) : Len(d.tasks[k].nodes) > 0
-Quiet(hs) == \A n \in hs : LET d == Decide27(n, hs, {}, {}) IN ~Replicates(d) /\ d.del = "none"
-NoTasks(hs) == \A n \in hs : ~Replicates(Decide27(n, hs, {}, {}))
-e\* a check "replicates" when it hands the replicator a task with at least one candidate node. (With overlapping
-\* rules the code as found keeps calling the replicator with an EMPTY candidate list: a holder remembered from
-\* an earlier rule does not lower the shortage of a later rule - a phantom shortage that copies nothing.)
-Replicates(d) == \E k \in 1..Len(d.tasks) : Len(d.tasks[k].nodes) > 0
-Quiet(hs) == \A n \in hs : LET d == Decide27(n, hs, {}, {}) IN ~Replicates(d) /\ d.del = "none"
-NoTasks(hs) == \A n \in hs : ~Replicates(Decide27(n, hs, {}, {}))
-x\* a check "replicates" when it hands the replicator a task with at least one candidate node. (With overlapping
-\* rules the code as found keeps calling the replicator with an EMPTY candidate list: a holder remembered from
-\* an earlier rule does not lower the shortage of a later rule - a phantom shortage that copies nothing.)
-Replicates(d) == \E k \in 1..Len(d.tasks) : Len(d.tasks[k].nodes) > 0
-Quiet(hs) == \A n \in hs : LET d == Decide27(n, hs, {}, {}) IN ~Replicates(d) /\ d.del = "none"
-NoTasks(hs) == \A n \in hs : ~Replicates(Decide27(n, hs, {}, {}))
-p\* a check "replicates" when it hands the replicator a task with at least one candidate node. (With overlapping
-\* rules the code as found keeps calling the replicator with an EMPTY candidate list: a holder remembered from
-\* an earlier rule does not lower the shortage of a later rule - a phantom shortage that copies nothing.)
-Replicates(d) == \E k \in 1..Len(d.tasks) : Len(d.tasks[k].nodes) > 0
-Quiet(hs) == \A n \in hs : LET d == Decide27(n, hs, {}, {}) IN ~Replicates(d) /\ d.del = "none"
-NoTasks(hs) == \A n \in hs : ~Replicates(Decide27(n, hs, {}, {}))
-l\* a check "replicates" when it hands the replicator a task with at least one candidate node. (With overlapping
-\* rules the code as found keeps calling the replicator with an EMPTY candidate list: a holder remembered from
-\* an earlier rule does not lower the shortage of a later rule - a phantom shortage that copies nothing.)
-Replicates(d) == \E k \in 1..Len(d.tasks) : Len(d.tasks[k].nodes) > 0
-Quiet(hs) == \A n \in hs : LET d == Decide27(n, hs, {}, {}) IN ~Replicates(d) /\ d.del = "none"
-NoTasks(hs) == \A n \in hs : ~Replicates(Decide27(n, hs, {}, {}))
-o\* a check "replicates" when it hands the replicator a task with at least one candidate node. (With overlapping
-\* rules the code as found keeps calling the replicator with an EMPTY candidate list: a holder remembered from
-\* an earlier rule does not lower the shortage of a later rule - a phantom shortage that copies nothing.)
-Replicates(d) == \E k \in 1..Len(d.tasks) : Len(d.tasks[k].nodes) > 0
-Quiet(hs) == \A n \in hs : LET d == Decide27(n, hs, {}, {}) IN ~Replicates(d) /\ d.del = "none"
-NoTasks(hs) == \A n \in hs : ~Replicates(Decide27(n, hs, {}, {}))
-r\* a check "replicates" when it hands the replicator a task with at least one candidate node. (With overlapping
-\* rules the code as found keeps calling the replicator with an EMPTY candidate list: a holder remembered from
-\* an earlier rule does not lower the shortage of a later rule - a phantom shortage that copies nothing.)
-Replicates(d) == \E k \in 1..Len(d.tasks) : Len(d.tasks[k].nodes) > 0
-Quiet(hs) == \A n \in hs : LET d == Decide27(n, hs, {}, {}) IN ~Replicates(d) /\ d.del = "none"
-NoTasks(hs) == \A n \in hs : ~Replicates(Decide27(n, hs, {}, {}))
-e\* a check "replicates" when it hands the replicator a task with at least one candidate node. (With overlapping
-\* rules the code as found keeps calling the replicator with an EMPTY candidate list: a holder remembered from
-\* an earlier rule does not lower the shortage of a later rule - a phantom shortage that copies nothing.)
-Replicates(d) == \E k \in 1..Len(d.tasks) : Len(d.tasks[k].nodes) > 0
-Quiet(hs) == \A n \in hs : LET d == Decide27(n, hs, {}, {}) IN ~Replicates(d) /\ d.del = "none"
-NoTasks(hs) == \A n \in hs : ~Replicates(Decide27(n, hs, {}, {}))
-d\* a check "replicates" when it hands the replicator a task with at least one candidate node. (With overlapping
-\* rules the code as found keeps calling the replicator with an EMPTY candidate list: a holder remembered from
-\* an earlier rule does not lower the shortage of a later rule - a phantom shortage that copies nothing.)
-Replicates(d) == \E k \in 1..Len(d.tasks) : Len(d.tasks[k].nodes) > 0
-Quiet(hs) == \A n \in hs : LET d == Decide27(n, hs, {}, {}) IN ~Replicates(d) /\ d.del = "none"
-NoTasks(hs) == \A n \in hs : ~Replicates(Decide27(n, hs, {}, {}))
-
-\* a check "replicates" when it hands the replicator a task with at least one candidate node. (With overlapping
-\* rules the code as found keeps calling the replicator with an EMPTY candidate list: a holder remembered from
-\* an earlier rule does not lower the shortage of a later rule - a phantom shortage that copies nothing.)
-Replicates(d) == \E k \in 1..Len(d.tasks) : Len(d.tasks[k].nodes) > 0
-Quiet(hs) == \A n \in hs : LET d == Decide27(n, hs, {}, {}) IN ~Replicates(d) /\ d.del = "none"
-NoTasks(hs) == \A n \in hs : ~Replicates(Decide27(n, hs, {}, {}))
- \* a check "replicates" when it hands the replicator a task with at least one candidate node. (With overlapping
-\* rules the code as found keeps calling the replicator with an EMPTY candidate list: a holder remembered from
-\* an earlier rule does not lower the shortage of a later rule - a phantom shortage that copies nothing.)
-Replicates(d) == \E k \in 1..Len(d.tasks) : Len(d.tasks[k].nodes) > 0
-Quiet(hs) == \A n \in hs : LET d == Decide27(n, hs, {}, {}) IN ~Replicates(d) /\ d.del = "none"
-NoTasks(hs) == \A n \in hs : ~Replicates(Decide27(n, hs, {}, {}))
- \* a check "replicates" when it hands the replicator a task with at least one candidate node. (With overlapping
-\* rules the code as found keeps calling the replicator with an EMPTY candidate list: a holder remembered from
-\* an earlier rule does not lower the shortage of a later rule - a phantom shortage that copies nothing.)
-Replicates(d) == \E k \in 1..Len(d.tasks) : Len(d.tasks[k].nodes) > 0
-Quiet(hs) == \A n \in hs : LET d == Decide27(n, hs, {}, {}) IN ~Replicates(d) /\ d.del = "none"
-NoTasks(hs) == \A n \in hs : ~Replicates(Decide27(n, hs, {}, {}))
- \* a check "replicates" when it hands the replicator a task with at least one candidate node. (With overlapping
-\* rules the code as found keeps calling the replicator with an EMPTY candidate list: a holder remembered from
-\* an earlier rule does not lower the shortage of a later rule - a phantom shortage that copies nothing.)
-Replicates(d) == \E k \in 1..Len(d.tasks) : Len(d.tasks[k].nodes) > 0
-Quiet(hs) == \A n \in hs : LET d == Decide27(n, hs, {}, {}) IN ~Replicates(d) /\ d.del = "none"
-NoTasks(hs) == \A n \in hs : ~Replicates(Decide27(n, hs, {}, {}))
- \* a check "replicates" when it hands the replicator a task with at least one candidate node. (With overlapping
-\* rules the code as found keeps calling the replicator with an EMPTY candidate list: a holder remembered from
-\* an earlier rule does not lower the shortage of a later rule - a phantom shortage that copies nothing.)
-Replicates(d) == \E k \in 1..Len(d.tasks) : Len(d.tasks[k].nodes) > 0
-Quiet(hs) == \A n \in hs : LET d == Decide27(n, hs, {}, {}) IN ~Replicates(d) /\ d.del = "none"
-NoTasks(hs) == \A n \in hs : ~Replicates(Decide27(n, hs, {}, {}))
- \* a check "replicates" when it hands the replicator a task with at least one candidate node. (With overlapping
-\* rules the code as found keeps calling the replicator with an EMPTY candidate list: a holder remembered from
-\* an earlier rule does not lower the shortage of a later rule - a phantom shortage that copies nothing.)
-Replicates(d) == \E k \in 1..Len(d.tasks) : Len(d.tasks[k].nodes) > 0
-Quiet(hs) == \A n \in hs : LET d == Decide27(n, hs, {}, {}) IN ~Replicates(d) /\ d.del = "none"
-NoTasks(hs) == \A n \in hs : ~Replicates(Decide27(n, hs, {}, {}))
- \* a check "replicates" when it hands the replicator a task with at least one candidate node. (With overlapping
-\* rules the code as found keeps calling the replicator with an EMPTY candidate list: a holder remembered from
-\* an earlier rule does not lower the shortage of a later rule - a phantom shortage that copies nothing.)
-Replicates(d) == \E k \in 1..Len(d.tasks) : Len(d.tasks[k].nodes) > 0
-Quiet(hs) == \A n \in hs : LET d == Decide27(n, hs, {}, {}) IN ~Replicates(d) /\ d.del = "none"
-NoTasks(hs) == \A n \in hs : ~Replicates(Decide27(n, hs, {}, {}))
- \* a check "replicates" when it hands the replicator a task with at least one candidate node. (With overlapping
-\* rules the code as found keeps calling the replicator with an EMPTY candidate list: a holder remembered from
-\* an earlier rule does not lower the shortage of a later rule - a phantom shortage that copies nothing.)
-Replicates(d) == \E k \in 1..Len(d.tasks) : Len(d.tasks[k].nodes) > 0
-Quiet(hs) == \A n \in hs : LET d == Decide27(n, hs, {}, {}) IN ~Replicates(d) /\ d.del = "none"
-NoTasks(hs) == \A n \in hs : ~Replicates(Decide27(n, hs, {}, {}))
- \* a check "replicates" when it hands the replicator a task with at least one candidate node. (With overlapping
-\* rules the code as found keeps calling the replicator with an EMPTY candidate list: a holder remembered from
-\* an earlier rule does not lower the shortage of a later rule - a phantom shortage that copies nothing.)
-Replicates(d) == \E k \in 1..Len(d.tasks) : Len(d.tasks[k].nodes) > 0
-Quiet(hs) == \A n \in hs : LET d == Decide27(n, hs, {}, {}) IN ~Replicates(d) /\ d.del = "none"
-NoTasks(hs) == \A n \in hs : ~Replicates(Decide27(n, hs, {}, {}))
- \* a check "replicates" when it hands the replicator a task with at least one candidate node. (With overlapping
-\* rules the code as found keeps calling the replicator with an EMPTY candidate list: a holder remembered from
-\* an earlier rule does not lower the shortage of a later rule - a phantom shortage that copies nothing.)
-Replicates(d) == \E k \in 1..Len(d.tasks) : Len(d.tasks[k].nodes) > 0
-Quiet(hs) == \A n \in hs : LET d == Decide27(n, hs, {}, {}) IN ~Replicates(d) /\ d.del = "none"
-NoTasks(hs) == \A n \in hs : ~Replicates(Decide27(n, hs, {}, {}))
- \* a check "replicates" when it hands the replicator a task with at least one candidate node. (With overlapping
-\* rules the code as found keeps calling the replicator with an EMPTY candidate list: a holder remembered from
-\* an earlier rule does not lower the shortage of a later rule - a phantom shortage that copies nothing.)
-Replicates(d) == \E k \in 1..Len(d.tasks) : Len(d.tasks[k].nodes) > 0
-Quiet(hs) == \A n \in hs : LET d == Decide27(n, hs, {}, {}) IN ~Replicates(d) /\ d.del = "none"
-NoTasks(hs) == \A n \in hs : ~Replicates(Decide27(n, hs, {}, {}))
-M\* a check "replicates" when it hands the replicator a task with at least one candidate node. (With overlapping
-\* rules the code as found keeps calling the replicator with an EMPTY candidate list: a holder remembered from
-\* an earlier rule does not lower the shortage of a later rule - a phantom shortage that copies nothing.)
-Replicates(d) == \E k \in 1..Len(d.tasks) : Len(d.tasks[k].nodes) > 0
-Quiet(hs) == \A n \in hs : LET d == Decide27(n, hs, {}, {}) IN ~Replicates(d) /\ d.del = "none"
-NoTasks(hs) == \A n \in hs : ~Replicates(Decide27(n, hs, {}, {}))
-a\* a check "replicates" when it hands the replicator a task with at least one candidate node. (With overlapping
-\* rules the code as found keeps calling the replicator with an EMPTY candidate list: a holder remembered from
-\* an earlier rule does not lower the shortage of a later rule - a phantom shortage that copies nothing.)
-Replicates(d) == \E k \in 1..Len(d.tasks) : Len(d.tasks[k].nodes) > 0
-Quiet(hs) == \A n \in hs : LET d == Decide27(n, hs, {}, {}) IN ~Replicates(d) /\ d.del = "none"
-NoTasks(hs) == \A n \in hs : ~Replicates(Decide27(n, hs, {}, {}))
-x\* a check "replicates" when it hands the replicator a task with at least one candidate node. (With overlapping
-\* rules the code as found keeps calling the replicator with an EMPTY candidate list: a holder remembered from
-\* an earlier rule does not lower the shortage of a later rule - a phantom shortage that copies nothing.)
-Replicates(d) == \E k \in 1..Len(d.tasks) : Len(d.tasks[k].nodes) > 0
-Quiet(hs) == \A n \in hs : LET d == Decide27(n, hs, {}, {}) IN ~Replicates(d) /\ d.del = "none"
-NoTasks(hs) == \A n \in hs : ~Replicates(Decide27(n, hs, {}, {}))
-R\* a check "replicates" when it hands the replicator a task with at least one candidate node. (With overlapping
-\* rules the code as found keeps calling the replicator with an EMPTY candidate list: a holder remembered from
-\* an earlier rule does not lower the shortage of a later rule - a phantom shortage that copies nothing.)
-Replicates(d) == \E k \in 1..Len(d.tasks) : Len(d.tasks[k].nodes) > 0
-Quiet(hs) == \A n \in hs : LET d == Decide27(n, hs, {}, {}) IN ~Replicates(d) /\ d.del = "none"
-NoTasks(hs) == \A n \in hs : ~Replicates(Decide27(n, hs, {}, {}))
-o\* a check "replicates" when it hands the replicator a task with at least one candidate node. (With overlapping
-\* rules the code as found keeps calling the replicator with an EMPTY candidate list: a holder remembered from
-\* an earlier rule does not lower the shortage of a later rule - a phantom shortage that copies nothing.)
-Replicates(d) == \E k \in 1..Len(d.tasks) : Len(d.tasks[k].nodes) > 0
-Quiet(hs) == \A n \in hs : LET d == Decide27(n, hs, {}, {}) IN ~Replicates(d) /\ d.del = "none"
-NoTasks(hs) == \A n \in hs : ~Replicates(Decide27(n, hs, {}, {}))
-u\* a check "replicates" when it hands the replicator a task with at least one candidate node. (With overlapping
-\* rules the code as found keeps calling the replicator with an EMPTY candidate list: a holder remembered from
-\* an earlier rule does not lower the shortage of a later rule - a phantom shortage that copies nothing.)
-Replicates(d) == \E k \in 1..Len(d.tasks) : Len(d.tasks[k].nodes) > 0
-Quiet(hs) == \A n \in hs : LET d == Decide27(n, hs, {}, {}) IN ~Replicates(d) /\ d.del = "none"
-NoTasks(hs) == \A n \in hs : ~Replicates(Decide27(n, hs, {}, {}))
-n\* a check "replicates" when it hands the replicator a task with at least one candidate node. (With overlapping
-\* rules the code as found keeps calling the replicator with an EMPTY candidate list: a holder remembered from
-\* an earlier rule does not lower the shortage of a later rule - a phantom shortage that copies nothing.)
-Replicates(d) == \E k \in 1..Len(d.tasks) : Len(d.tasks[k].nodes) > 0
-Quiet(hs) == \A n \in hs : LET d == Decide27(n, hs, {}, {}) IN ~Replicates(d) /\ d.del = "none"
-NoTasks(hs) == \A n \in hs : ~Replicates(Decide27(n, hs, {}, {}))
-d\* a check "replicates" when it hands the replicator a task with at least one candidate node. (With overlapping
-\* rules the code as found keeps calling the replicator with an EMPTY candidate list: a holder remembered from
-\* an earlier rule does not lower the shortage of a later rule - a phantom shortage that copies nothing.)
-Replicates(d) == \E k \in 1..Len(d.tasks) : Len(d.tasks[k].nodes) > 0
-Quiet(hs) == \A n \in hs : LET d == Decide27(n, hs, {}, {}) IN ~Replicates(d) /\ d.del = "none"
-NoTasks(hs) == \A n \in hs : ~Replicates(Decide27(n, hs, {}, {}))
-s\* a check "replicates" when it hands the replicator a task with at least one candidate node. (With overlapping
-\* rules the code as found keeps calling the replicator with an EMPTY candidate list: a holder remembered from
-\* an earlier rule does not lower the shortage of a later rule - a phantom shortage that copies nothing.)
-Replicates(d) == \E k \in 1..Len(d.tasks) : Len(d.tasks[k].nodes) > 0
-Quiet(hs) == \A n \in hs : LET d == Decide27(n, hs, {}, {}) IN ~Replicates(d) /\ d.del = "none"
-NoTasks(hs) == \A n \in hs : ~Replicates(Decide27(n, hs, {}, {}))
- \* a check "replicates" when it hands the replicator a task with at least one candidate node. (With overlapping
-\* rules the code as found keeps calling the replicator with an EMPTY candidate list: a holder remembered from
-\* an earlier rule does not lower the shortage of a later rule - a phantom shortage that copies nothing.)
-Replicates(d) == \E k \in 1..Len(d.tasks) : Len(d.tasks[k].nodes) > 0
-Quiet(hs) == \A n \in hs : LET d == Decide27(n, hs, {}, {}) IN ~Replicates(d) /\ d.del = "none"
-NoTasks(hs) == \A n \in hs : ~Replicates(Decide27(n, hs, {}, {}))
- \* a check "replicates" when it hands the replicator a task with at least one candidate node. (With overlapping
-\* rules the code as found keeps calling the replicator with an EMPTY candidate list: a holder remembered from
-\* an earlier rule does not lower the shortage of a later rule - a phantom shortage that copies nothing.)
-Replicates(d) == \E k \in 1..Len(d.tasks) : Len(d.tasks[k].nodes) > 0
-Quiet(hs) == \A n \in hs : LET d == Decide27(n, hs, {}, {}) IN ~Replicates(d) /\ d.del = "none"
-NoTasks(hs) == \A n \in hs : ~Replicates(Decide27(n, hs, {}, {}))
- \* a check "replicates" when it hands the replicator a task with at least one candidate node. (With overlapping
-\* rules the code as found keeps calling the replicator with an EMPTY candidate list: a holder remembered from
-\* an earlier rule does not lower the shortage of a later rule - a phantom shortage that copies nothing.)
-Replicates(d) == \E k \in 1..Len(d.tasks) : Len(d.tasks[k].nodes) > 0
-Quiet(hs) == \A n \in hs : LET d == Decide27(n, hs, {}, {}) IN ~Replicates(d) /\ d.del = "none"
-NoTasks(hs) == \A n \in hs : ~Replicates(Decide27(n, hs, {}, {}))
-\\* a check "replicates" when it hands the replicator a task with at least one candidate node. (With overlapping
-\* rules the code as found keeps calling the replicator with an EMPTY candidate list: a holder remembered from
-\* an earlier rule does not lower the shortage of a later rule - a phantom shortage that copies nothing.)
-Replicates(d) == \E k \in 1..Len(d.tasks) : Len(d.tasks[k].nodes) > 0
-Quiet(hs) == \A n \in hs : LET d == Decide27(n, hs, {}, {}) IN ~Replicates(d) /\ d.del = "none"
-NoTasks(hs) == \A n \in hs : ~Replicates(Decide27(n, hs, {}, {}))
-*\* a check "replicates" when it hands the replicator a task with at least one candidate node. (With overlapping
-\* rules the code as found keeps calling the replicator with an EMPTY candidate list: a holder remembered from
-\* an earlier rule does not lower the shortage of a later rule - a phantom shortage that copies nothing.)
-Replicates(d) == \E k \in 1..Len(d.tasks) : Len(d.tasks[k].nodes) > 0
-Quiet(hs) == \A n \in hs : LET d == Decide27(n, hs, {}, {}) IN ~Replicates(d) /\ d.del = "none"
-NoTasks(hs) == \A n \in hs : ~Replicates(Decide27(n, hs, {}, {}))
- \* a check "replicates" when it hands the replicator a task with at least one candidate node. (With overlapping
-\* rules the code as found keeps calling the replicator with an EMPTY candidate list: a holder remembered from
-\* an earlier rule does not lower the shortage of a later rule - a phantom shortage that copies nothing.)
-Replicates(d) == \E k \in 1..Len(d.tasks) : Len(d.tasks[k].nodes) > 0
-Quiet(hs) == \A n \in hs : LET d == Decide27(n, hs, {}, {}) IN ~Replicates(d) /\ d.del = "none"
-NoTasks(hs) == \A n \in hs : ~Replicates(Decide27(n, hs, {}, {}))
-b\* a check "replicates" when it hands the replicator a task with at least one candidate node. (With overlapping
-\* rules the code as found keeps calling the replicator with an EMPTY candidate list: a holder remembered from
-\* an earlier rule does not lower the shortage of a later rule - a phantom shortage that copies nothing.)
-Replicates(d) == \E k \in 1..Len(d.tasks) : Len(d.tasks[k].nodes) > 0
-Quiet(hs) == \A n \in hs : LET d == Decide27(n, hs, {}, {}) IN ~Replicates(d) /\ d.del = "none"
-NoTasks(hs) == \A n \in hs : ~Replicates(Decide27(n, hs, {}, {}))
-o\* a check "replicates" when it hands the replicator a task with at least one candidate node. (With overlapping
-\* rules the code as found keeps calling the replicator with an EMPTY candidate list: a holder remembered from
-\* an earlier rule does not lower the shortage of a later rule - a phantom shortage that copies nothing.)
-Replicates(d) == \E k \in 1..Len(d.tasks) : Len(d.tasks[k].nodes) > 0
-Quiet(hs) == \A n \in hs : LET d == Decide27(n, hs, {}, {}) IN ~Replicates(d) /\ d.del = "none"
-NoTasks(hs) == \A n \in hs : ~Replicates(Decide27(n, hs, {}, {}))
-u\* a check "replicates" when it hands the replicator a task with at least one candidate node. (With overlapping
-\* rules the code as found keeps calling the replicator with an EMPTY candidate list: a holder remembered from
-\* an earlier rule does not lower the shortage of a later rule - a phantom shortage that copies nothing.)
-Replicates(d) == \E k \in 1..Len(d.tasks) : Len(d.tasks[k].nodes) > 0
-Quiet(hs) == \A n \in hs : LET d == Decide27(n, hs, {}, {}) IN ~Replicates(d) /\ d.del = "none"
-NoTasks(hs) == \A n \in hs : ~Replicates(Decide27(n, hs, {}, {}))
-n\* a check "replicates" when it hands the replicator a task with at least one candidate node. (With overlapping
-\* rules the code as found keeps calling the replicator with an EMPTY candidate list: a holder remembered from
-\* an earlier rule does not lower the shortage of a later rule - a phantom shortage that copies nothing.)
-Replicates(d) == \E k \in 1..Len(d.tasks) : Len(d.tasks[k].nodes) > 0
-Quiet(hs) == \A n \in hs : LET d == Decide27(n, hs, {}, {}) IN ~Replicates(d) /\ d.del = "none"
-NoTasks(hs) == \A n \in hs : ~Replicates(Decide27(n, hs, {}, {}))
-d\* a check "replicates" when it hands the replicator a task with at least one candidate node. (With overlapping
-\* rules the code as found keeps calling the replicator with an EMPTY candidate list: a holder remembered from
-\* an earlier rule does not lower the shortage of a later rule - a phantom shortage that copies nothing.)
-Replicates(d) == \E k \in 1..Len(d.tasks) : Len(d.tasks[k].nodes) > 0
-Quiet(hs) == \A n \in hs : LET d == Decide27(n, hs, {}, {}) IN ~Replicates(d) /\ d.del = "none"
-NoTasks(hs) == \A n \in hs : ~Replicates(Decide27(n, hs, {}, {}))
- \* a check "replicates" when it hands the replicator a task with at least one candidate node. (With overlapping
-\* rules the code as found keeps calling the replicator with an EMPTY candidate list: a holder remembered from
-\* an earlier rule does not lower the shortage of a later rule - a phantom shortage that copies nothing.)
-Replicates(d) == \E k \in 1..Len(d.tasks) : Len(d.tasks[k].nodes) > 0
-Quiet(hs) == \A n \in hs : LET d == Decide27(n, hs, {}, {}) IN ~Replicates(d) /\ d.del = "none"
-NoTasks(hs) == \A n \in hs : ~Replicates(Decide27(n, hs, {}, {}))
-o\* a check "replicates" when it hands the replicator a task with at least one candidate node. (With overlapping
-\* rules the code as found keeps calling the replicator with an EMPTY candidate list: a holder remembered from
-\* an earlier rule does not lower the shortage of a later rule - a phantom shortage that copies nothing.)
-Replicates(d) == \E k \in 1..Len(d.tasks) : Len(d.tasks[k].nodes) > 0
-Quiet(hs) == \A n \in hs : LET d == Decide27(n, hs, {}, {}) IN ~Replicates(d) /\ d.del = "none"
-NoTasks(hs) == \A n \in hs : ~Replicates(Decide27(n, hs, {}, {}))
-f\* a check "replicates" when it hands the replicator a task with at least one candidate node. (With overlapping
-\* rules the code as found keeps calling the replicator with an EMPTY candidate list: a holder remembered from
-\* an earlier rule does not lower the shortage of a later rule - a phantom shortage that copies nothing.)
-Replicates(d) == \E k \in 1..Len(d.tasks) : Len(d.tasks[k].nodes) > 0
-Quiet(hs) == \A n \in hs : LET d == Decide27(n, hs, {}, {}) IN ~Replicates(d) /\ d.del = "none"
-NoTasks(hs) == \A n \in hs : ~Replicates(Decide27(n, hs, {}, {}))
- \* a check "replicates" when it hands the replicator a task with at least one candidate node. (With overlapping
-\* rules the code as found keeps calling the replicator with an EMPTY candidate list: a holder remembered from
-\* an earlier rule does not lower the shortage of a later rule - a phantom shortage that copies nothing.)
-Replicates(d) == \E k \in 1..Len(d.tasks) : Len(d.tasks[k].nodes) > 0
-Quiet(hs) == \A n \in hs : LET d == Decide27(n, hs, {}, {}) IN ~Replicates(d) /\ d.del = "none"
-NoTasks(hs) == \A n \in hs : ~Replicates(Decide27(n, hs, {}, {}))
-t\* a check "replicates" when it hands the replicator a task with at least one candidate node. (With overlapping
-\* rules the code as found keeps calling the replicator with an EMPTY candidate list: a holder remembered from
-\* an earlier rule does not lower the shortage of a later rule - a phantom shortage that copies nothing.)
-Replicates(d) == \E k \in 1..Len(d.tasks) : Len(d.tasks[k].nodes) > 0
-Quiet(hs) == \A n \in hs : LET d == Decide27(n, hs, {}, {}) IN ~Replicates(d) /\ d.del = "none"
-NoTasks(hs) == \A n \in hs : ~Replicates(Decide27(n, hs, {}, {}))
-h\* a check "replicates" when it hands the replicator a task with at least one candidate node. (With overlapping
-\* rules the code as found keeps calling the replicator with an EMPTY candidate list: a holder remembered from
-\* an earlier rule does not lower the shortage of a later rule - a phantom shortage that copies nothing.)
-Replicates(d) == \E k \in 1..Len(d.tasks) : Len(d.tasks[k].nodes) > 0
-Quiet(hs) == \A n \in hs : LET d == Decide27(n, hs, {}, {}) IN ~Replicates(d) /\ d.del = "none"
-NoTasks(hs) == \A n \in hs : ~Replicates(Decide27(n, hs, {}, {}))
-e\* a check "replicates" when it hands the replicator a task with at least one candidate node. (With overlapping
-\* rules the code as found keeps calling the replicator with an EMPTY candidate list: a holder remembered from
-\* an earlier rule does not lower the shortage of a later rule - a phantom shortage that copies nothing.)
-Replicates(d) == \E k \in 1..Len(d.tasks) : Len(d.tasks[k].nodes) > 0
-Quiet(hs) == \A n \in hs : LET d == Decide27(n, hs, {}, {}) IN ~Replicates(d) /\ d.del = "none"
-NoTasks(hs) == \A n \in hs : ~Replicates(Decide27(n, hs, {}, {}))
- \* a check "replicates" when it hands the replicator a task with at least one candidate node. (With overlapping
-\* rules the code as found keeps calling the replicator with an EMPTY candidate list: a holder remembered from
-\* an earlier rule does not lower the shortage of a later rule - a phantom shortage that copies nothing.)
-Replicates(d) == \E k \in 1..Len(d.tasks) : Len(d.tasks[k].nodes) > 0
-Quiet(hs) == \A n \in hs : LET d == Decide27(n, hs, {}, {}) IN ~Replicates(d) /\ d.del = "none"
-NoTasks(hs) == \A n \in hs : ~Replicates(Decide27(n, hs, {}, {}))
-b\* a check "replicates" when it hands the replicator a task with at least one candidate node. (With overlapping
-\* rules the code as found keeps calling the replicator with an EMPTY candidate list: a holder remembered from
-\* an earlier rule does not lower the shortage of a later rule - a phantom shortage that copies nothing.)
-Replicates(d) == \E k \in 1..Len(d.tasks) : Len(d.tasks[k].nodes) > 0
-Quiet(hs) == \A n \in hs : LET d == Decide27(n, hs, {}, {}) IN ~Replicates(d) /\ d.del = "none"
-NoTasks(hs) == \A n \in hs : ~Replicates(Decide27(n, hs, {}, {}))
-o\* a check "replicates" when it hands the replicator a task with at least one candidate node. (With overlapping
-\* rules the code as found keeps calling the replicator with an EMPTY candidate list: a holder remembered from
-\* an earlier rule does not lower the shortage of a later rule - a phantom shortage that copies nothing.)
-Replicates(d) == \E k \in 1..Len(d.tasks) : Len(d.tasks[k].nodes) > 0
-Quiet(hs) == \A n \in hs : LET d == Decide27(n, hs, {}, {}) IN ~Replicates(d) /\ d.del = "none"
-NoTasks(hs) == \A n \in hs : ~Replicates(Decide27(n, hs, {}, {}))
-u\* a check "replicates" when it hands the replicator a task with at least one candidate node. (With overlapping
-\* rules the code as found keeps calling the replicator with an EMPTY candidate list: a holder remembered from
-\* an earlier rule does not lower the shortage of a later rule - a phantom shortage that copies nothing.)
-Replicates(d) == \E k \in 1..Len(d.tasks) : Len(d.tasks[k].nodes) > 0
-Quiet(hs) == \A n \in hs : LET d == Decide27(n, hs, {}, {}) IN ~Replicates(d) /\ d.del = "none"
-NoTasks(hs) == \A n \in hs : ~Replicates(Decide27(n, hs, {}, {}))
-n\* a check "replicates" when it hands the replicator a task with at least one candidate node. (With overlapping
-\* rules the code as found keeps calling the replicator with an EMPTY candidate list: a holder remembered from
-\* an earlier rule does not lower the shortage of a later rule - a phantom shortage that copies nothing.)
-Replicates(d) == \E k \in 1..Len(d.tasks) : Len(d.tasks[k].nodes) > 0
-Quiet(hs) == \A n \in hs : LET d == Decide27(n, hs, {}, {}) IN ~Replicates(d) /\ d.del = "none"
-NoTasks(hs) == \A n \in hs : ~Replicates(Decide27(n, hs, {}, {}))
-d\* a check "replicates" when it hands the replicator a task with at least one candidate node. (With overlapping
-\* rules the code as found keeps calling the replicator with an EMPTY candidate list: a holder remembered from
-\* an earlier rule does not lower the shortage of a later rule - a phantom shortage that copies nothing.)
-Replicates(d) == \E k \in 1..Len(d.tasks) : Len(d.tasks[k].nodes) > 0
-Quiet(hs) == \A n \in hs : LET d == Decide27(n, hs, {}, {}) IN ~Replicates(d) /\ d.del = "none"
-NoTasks(hs) == \A n \in hs : ~Replicates(Decide27(n, hs, {}, {}))
-e\* a check "replicates" when it hands the replicator a task with at least one candidate node. (With overlapping
-\* rules the code as found keeps calling the replicator with an EMPTY candidate list: a holder remembered from
-\* an earlier rule does not lower the shortage of a later rule - a phantom shortage that copies nothing.)
-Replicates(d) == \E k \in 1..Len(d.tasks) : Len(d.tasks[k].nodes) > 0
-Quiet(hs) == \A n \in hs : LET d == Decide27(n, hs, {}, {}) IN ~Replicates(d) /\ d.del = "none"
-NoTasks(hs) == \A n \in hs : ~Replicates(Decide27(n, hs, {}, {}))
-d\* a check "replicates" when it hands the replicator a task with at least one candidate node. (With overlapping
-\* rules the code as found keeps calling the replicator with an EMPTY candidate list: a holder remembered from
-\* an earlier rule does not lower the shortage of a later rule - a phantom shortage that copies nothing.)
-Replicates(d) == \E k \in 1..Len(d.tasks) : Len(d.tasks[k].nodes) > 0
-Quiet(hs) == \A n \in hs : LET d == Decide27(n, hs, {}, {}) IN ~Replicates(d) /\ d.del = "none"
-NoTasks(hs) == \A n \in hs : ~Replicates(Decide27(n, hs, {}, {}))
--\* a check "replicates" when it hands the replicator a task with at least one candidate node. (With overlapping
-\* rules the code as found keeps calling the replicator with an EMPTY candidate list: a holder remembered from
-\* an earlier rule does not lower the shortage of a later rule - a phantom shortage that copies nothing.)
-Replicates(d) == \E k \in 1..Len(d.tasks) : Len(d.tasks[k].nodes) > 0
-Quiet(hs) == \A n \in hs : LET d == Decide27(n, hs, {}, {}) IN ~Replicates(d) /\ d.del = "none"
-NoTasks(hs) == \A n \in hs : ~Replicates(Decide27(n, hs, {}, {}))
-c\* a check "replicates" when it hands the replicator a task with at least one candidate node. (With overlapping
-\* rules the code as found keeps calling the replicator with an EMPTY candidate list: a holder remembered from
-\* an earlier rule does not lower the shortage of a later rule - a phantom shortage that copies nothing.)
-Replicates(d) == \E k \in 1..Len(d.tasks) : Len(d.tasks[k].nodes) > 0
-Quiet(hs) == \A n \in hs : LET d == Decide27(n, hs, {}, {}) IN ~Replicates(d) /\ d.del = "none"
-NoTasks(hs) == \A n \in hs : ~Replicates(Decide27(n, hs, {}, {}))
-o\* a check "replicates" when it hands the replicator a task with at least one candidate node. (With overlapping
-\* rules the code as found keeps calling the replicator with an EMPTY candidate list: a holder remembered from
-\* an earlier rule does not lower the shortage of a later rule - a phantom shortage that copies nothing.)
-Replicates(d) == \E k \in 1..Len(d.tasks) : Len(d.tasks[k].nodes) > 0
-Quiet(hs) == \A n \in hs : LET d == Decide27(n, hs, {}, {}) IN ~Replicates(d) /\ d.del = "none"
-NoTasks(hs) == \A n \in hs : ~Replicates(Decide27(n, hs, {}, {}))
-n\* a check "replicates" when it hands the replicator a task with at least one candidate node. (With overlapping
-\* rules the code as found keeps calling the replicator with an EMPTY candidate list: a holder remembered from
-\* an earlier rule does not lower the shortage of a later rule - a phantom shortage that copies nothing.)
-Replicates(d) == \E k \in 1..Len(d.tasks) : Len(d.tasks[k].nodes) > 0
-Quiet(hs) == \A n \in hs : LET d == Decide27(n, hs, {}, {}) IN ~Replicates(d) /\ d.del = "none"
-NoTasks(hs) == \A n \in hs : ~Replicates(Decide27(n, hs, {}, {}))
-v\* a check "replicates" when it hands the replicator a task with at least one candidate node. (With overlapping
-\* rules the code as found keeps calling the replicator with an EMPTY candidate list: a holder remembered from
-\* an earlier rule does not lower the shortage of a later rule - a phantom shortage that copies nothing.)
-Replicates(d) == \E k \in 1..Len(d.tasks) : Len(d.tasks[k].nodes) > 0
-Quiet(hs) == \A n \in hs : LET d == Decide27(n, hs, {}, {}) IN ~Replicates(d) /\ d.del = "none"
-NoTasks(hs) == \A n \in hs : ~Replicates(Decide27(n, hs, {}, {}))
-e\* a check "replicates" when it hands the replicator a task with at least one candidate node. (With overlapping
-\* rules the code as found keeps calling the replicator with an EMPTY candidate list: a holder remembered from
-\* an earlier rule does not lower the shortage of a later rule - a phantom shortage that copies nothing.)
-Replicates(d) == \E k \in 1..Len(d.tasks) : Len(d.tasks[k].nodes) > 0
-Quiet(hs) == \A n \in hs : LET d == Decide27(n, hs, {}, {}) IN ~Replicates(d) /\ d.del = "none"
-NoTasks(hs) == \A n \in hs : ~Replicates(Decide27(n, hs, {}, {}))
-r\* a check "replicates" when it hands the replicator a task with at least one candidate node. (With overlapping
-\* rules the code as found keeps calling the replicator with an EMPTY candidate list: a holder remembered from
-\* an earlier rule does not lower the shortage of a later rule - a phantom shortage that copies nothing.)
-Replicates(d) == \E k \in 1..Len(d.tasks) : Len(d.tasks[k].nodes) > 0
-Quiet(hs) == \A n \in hs : LET d == Decide27(n, hs, {}, {}) IN ~Replicates(d) /\ d.del = "none"
-NoTasks(hs) == \A n \in hs : ~Replicates(Decide27(n, hs, {}, {}))
-g\* a check "replicates" when it hands the replicator a task with at least one candidate node. (With overlapping
-\* rules the code as found keeps calling the replicator with an EMPTY candidate list: a holder remembered from
-\* an earlier rule does not lower the shortage of a later rule - a phantom shortage that copies nothing.)
-Replicates(d) == \E k \in 1..Len(d.tasks) : Len(d.tasks[k].nodes) > 0
-Quiet(hs) == \A n \in hs : LET d == Decide27(n, hs, {}, {}) IN ~Replicates(d) /\ d.del = "none"
-NoTasks(hs) == \A n \in hs : ~Replicates(Decide27(n, hs, {}, {}))
-e\* a check "replicates" when it hands the replicator a task with at least one candidate node. (With overlapping
-\* rules the code as found keeps calling the replicator with an EMPTY candidate list: a holder remembered from
-\* an earlier rule does not lower the shortage of a later rule - a phantom shortage that copies nothing.)
-Replicates(d) == \E k \in 1..Len(d.tasks) : Len(d.tasks[k].nodes) > 0
-Quiet(hs) == \A n \in hs : LET d == Decide27(n, hs, {}, {}) IN ~Replicates(d) /\ d.del = "none"
-NoTasks(hs) == \A n \in hs : ~Replicates(Decide27(n, hs, {}, {}))
-n\* a check "replicates" when it hands the replicator a task with at least one candidate node. (With overlapping
-\* rules the code as found keeps calling the replicator with an EMPTY candidate list: a holder remembered from
-\* an earlier rule does not lower the shortage of a later rule - a phantom shortage that copies nothing.)
-Replicates(d) == \E k \in 1..Len(d.tasks) : Len(d.tasks[k].nodes) > 0
-Quiet(hs) == \A n \in hs : LET d == Decide27(n, hs, {}, {}) IN ~Replicates(d) /\ d.del = "none"
-NoTasks(hs) == \A n \in hs : ~Replicates(Decide27(n, hs, {}, {}))
-c\* a check "replicates" when it hands the replicator a task with at least one candidate node. (With overlapping
-\* rules the code as found keeps calling the replicator with an EMPTY candidate list: a holder remembered from
-\* an earlier rule does not lower the shortage of a later rule - a phantom shortage that copies nothing.)
-Replicates(d) == \E k \in 1..Len(d.tasks) : Len(d.tasks[k].nodes) > 0
-Quiet(hs) == \A n \in hs : LET d == Decide27(n, hs, {}, {}) IN ~Replicates(d) /\ d.del = "none"
-NoTasks(hs) == \A n \in hs : ~Replicates(Decide27(n, hs, {}, {}))
-e\* a check "replicates" when it hands the replicator a task with at least one candidate node. (With overlapping
-\* rules the code as found keeps calling the replicator with an EMPTY candidate list: a holder remembered from
-\* an earlier rule does not lower the shortage of a later rule - a phantom shortage that copies nothing.)
-Replicates(d) == \E k \in 1..Len(d.tasks) : Len(d.tasks[k].nodes) > 0
-Quiet(hs) == \A n \in hs : LET d == Decide27(n, hs, {}, {}) IN ~Replicates(d) /\ d.del = "none"
-NoTasks(hs) == \A n \in hs : ~Replicates(Decide27(n, hs, {}, {}))
- \* a check "replicates" when it hands the replicator a task with at least one candidate node. (With overlapping
-\* rules the code as found keeps calling the replicator with an EMPTY candidate list: a holder remembered from
-\* an earlier rule does not lower the shortage of a later rule - a phantom shortage that copies nothing.)
-Replicates(d) == \E k \in 1..Len(d.tasks) : Len(d.tasks[k].nodes) > 0
-Quiet(hs) == \A n \in hs : LET d == Decide27(n, hs, {}, {}) IN ~Replicates(d) /\ d.del = "none"
-NoTasks(hs) == \A n \in hs : ~Replicates(Decide27(n, hs, {}, {}))
-i\* a check "replicates" when it hands the replicator a task with at least one candidate node. (With overlapping
-\* rules the code as found keeps calling the replicator with an EMPTY candidate list: a holder remembered from
-\* an earlier rule does not lower the shortage of a later rule - a phantom shortage that copies nothing.)
-Replicates(d) == \E k \in 1..Len(d.tasks) : Len(d.tasks[k].nodes) > 0
-Quiet(hs) == \A n \in hs : LET d == Decide27(n, hs, {}, {}) IN ~Replicates(d) /\ d.del = "none"
-NoTasks(hs) == \A n \in hs : ~Replicates(Decide27(n, hs, {}, {}))
-n\* a check "replicates" when it hands the replicator a task with at least one candidate node. (With overlapping
-\* rules the code as found keeps calling the replicator with an EMPTY candidate list: a holder remembered from
-\* an earlier rule does not lower the shortage of a later rule - a phantom shortage that copies nothing.)
-Replicates(d) == \E k \in 1..Len(d.tasks) : Len(d.tasks[k].nodes) > 0
-Quiet(hs) == \A n \in hs : LET d == Decide27(n, hs, {}, {}) IN ~Replicates(d) /\ d.del = "none"
-NoTasks(hs) == \A n \in hs : ~Replicates(Decide27(n, hs, {}, {}))
-v\* a check "replicates" when it hands the replicator a task with at least one candidate node. (With overlapping
-\* rules the code as found keeps calling the replicator with an EMPTY candidate list: a holder remembered from
-\* an earlier rule does not lower the shortage of a later rule - a phantom shortage that copies nothing.)
-Replicates(d) == \E k \in 1..Len(d.tasks) : Len(d.tasks[k].nodes) > 0
-Quiet(hs) == \A n \in hs : LET d == Decide27(n, hs, {}, {}) IN ~Replicates(d) /\ d.del = "none"
-NoTasks(hs) == \A n \in hs : ~Replicates(Decide27(n, hs, {}, {}))
-a\* a check "replicates" when it hands the replicator a task with at least one candidate node. (With overlapping
-\* rules the code as found keeps calling the replicator with an EMPTY candidate list: a holder remembered from
-\* an earlier rule does not lower the shortage of a later rule - a phantom shortage that copies nothing.)
-Replicates(d) == \E k \in 1..Len(d.tasks) : Len(d.tasks[k].nodes) > 0
-Quiet(hs) == \A n \in hs : LET d == Decide27(n, hs, {}, {}) IN ~Replicates(d) /\ d.del = "none"
-NoTasks(hs) == \A n \in hs : ~Replicates(Decide27(n, hs, {}, {}))
-r\* a check "replicates" when it hands the replicator a task with at least one candidate node. (With overlapping
-\* rules the code as found keeps calling the replicator with an EMPTY candidate list: a holder remembered from
-\* an earlier rule does not lower the shortage of a later rule - a phantom shortage that copies nothing.)
-Replicates(d) == \E k \in 1..Len(d.tasks) : Len(d.tasks[k].nodes) > 0
-Quiet(hs) == \A n \in hs : LET d == Decide27(n, hs, {}, {}) IN ~Replicates(d) /\ d.del = "none"
-NoTasks(hs) == \A n \in hs : ~Replicates(Decide27(n, hs, {}, {}))
-i\* a check "replicates" when it hands the replicator a task with at least one candidate node. (With overlapping
-\* rules the code as found keeps calling the replicator with an EMPTY candidate list: a holder remembered from
-\* an earlier rule does not lower the shortage of a later rule - a phantom shortage that copies nothing.)
-Replicates(d) == \E k \in 1..Len(d.tasks) : Len(d.tasks[k].nodes) > 0
-Quiet(hs) == \A n \in hs : LET d == Decide27(n, hs, {}, {}) IN ~Replicates(d) /\ d.del = "none"
-NoTasks(hs) == \A n \in hs : ~Replicates(Decide27(n, hs, {}, {}))
-a\* a check "replicates" when it hands the replicator a task with at least one candidate node. (With overlapping
-\* rules the code as found keeps calling the replicator with an EMPTY candidate list: a holder remembered from
-\* an earlier rule does not lower the shortage of a later rule - a phantom shortage that copies nothing.)
-Replicates(d) == \E k \in 1..Len(d.tasks) : Len(d.tasks[k].nodes) > 0
-Quiet(hs) == \A n \in hs : LET d == Decide27(n, hs, {}, {}) IN ~Replicates(d) /\ d.del = "none"
-NoTasks(hs) == \A n \in hs : ~Replicates(Decide27(n, hs, {}, {}))
-n\* a check "replicates" when it hands the replicator a task with at least one candidate node. (With overlapping
-\* rules the code as found keeps calling the replicator with an EMPTY candidate list: a holder remembered from
-\* an earlier rule does not lower the shortage of a later rule - a phantom shortage that copies nothing.)
-Replicates(d) == \E k \in 1..Len(d.tasks) : Len(d.tasks[k].nodes) > 0
-Quiet(hs) == \A n \in hs : LET d == Decide27(n, hs, {}, {}) IN ~Replicates(d) /\ d.del = "none"
-NoTasks(hs) == \A n \in hs : ~Replicates(Decide27(n, hs, {}, {}))
-t\* a check "replicates" when it hands the replicator a task with at least one candidate node. (With overlapping
-\* rules the code as found keeps calling the replicator with an EMPTY candidate list: a holder remembered from
-\* an earlier rule does not lower the shortage of a later rule - a phantom shortage that copies nothing.)
-Replicates(d) == \E k \in 1..Len(d.tasks) : Len(d.tasks[k].nodes) > 0
-Quiet(hs) == \A n \in hs : LET d == Decide27(n, hs, {}, {}) IN ~Replicates(d) /\ d.del = "none"
-NoTasks(hs) == \A n \in hs : ~Replicates(Decide27(n, hs, {}, {}))
-
-\* a check "replicates" when it hands the replicator a task with at least one candidate node. (With overlapping
-\* rules the code as found keeps calling the replicator with an EMPTY candidate list: a holder remembered from
-\* an earlier rule does not lower the shortage of a later rule - a phantom shortage that copies nothing.)
-Replicates(d) == \E k \in 1..Len(d.tasks) : Len(d.tasks[k].nodes) > 0
-Quiet(hs) == \A n \in hs : LET d == Decide27(n, hs, {}, {}) IN ~Replicates(d) /\ d.del = "none"
-NoTasks(hs) == \A n \in hs : ~Replicates(Decide27(n, hs, {}, {}))
-
-\* a check "replicates" when it hands the replicator a task with at least one candidate node. (With overlapping
-\* rules the code as found keeps calling the replicator with an EMPTY candidate list: a holder remembered from
-\* an earlier rule does not lower the shortage of a later rule - a phantom shortage that copies nothing.)
-Replicates(d) == \E k \in 1..Len(d.tasks) : Len(d.tasks[k].nodes) > 0
-Quiet(hs) == \A n \in hs : LET d == Decide27(n, hs, {}, {}) IN ~Replicates(d) /\ d.del = "none"
-NoTasks(hs) == \A n \in hs : ~Replicates(Decide27(n, hs, {}, {}))
-C\* a check "replicates" when it hands the replicator a task with at least one candidate node. (With overlapping
-\* rules the code as found keeps calling the replicator with an EMPTY candidate list: a holder remembered from
-\* an earlier rule does not lower the shortage of a later rule - a phantom shortage that copies nothing.)
-Replicates(d) == \E k \in 1..Len(d.tasks) : Len(d.tasks[k].nodes) > 0
-Quiet(hs) == \A n \in hs : LET d == Decide27(n, hs, {}, {}) IN ~Replicates(d) /\ d.del = "none"
-NoTasks(hs) == \A n \in hs : ~Replicates(Decide27(n, hs, {}, {}))
-l\* a check "replicates" when it hands the replicator a task with at least one candidate node. (With overlapping
-\* rules the code as found keeps calling the replicator with an EMPTY candidate list: a holder remembered from
-\* an earlier rule does not lower the shortage of a later rule - a phantom shortage that copies nothing.)
-Replicates(d) == \E k \in 1..Len(d.tasks) : Len(d.tasks[k].nodes) > 0
-Quiet(hs) == \A n \in hs : LET d == Decide27(n, hs, {}, {}) IN ~Replicates(d) /\ d.del = "none"
-NoTasks(hs) == \A n \in hs : ~Replicates(Decide27(n, hs, {}, {}))
-u\* a check "replicates" when it hands the replicator a task with at least one candidate node. (With overlapping
-\* rules the code as found keeps calling the replicator with an EMPTY candidate list: a holder remembered from
-\* an earlier rule does not lower the shortage of a later rule - a phantom shortage that copies nothing.)
-Replicates(d) == \E k \in 1..Len(d.tasks) : Len(d.tasks[k].nodes) > 0
-Quiet(hs) == \A n \in hs : LET d == Decide27(n, hs, {}, {}) IN ~Replicates(d) /\ d.del = "none"
-NoTasks(hs) == \A n \in hs : ~Replicates(Decide27(n, hs, {}, {}))
-s\* a check "replicates" when it hands the replicator a task with at least one candidate node. (With overlapping
-\* rules the code as found keeps calling the replicator with an EMPTY candidate list: a holder remembered from
-\* an earlier rule does not lower the shortage of a later rule - a phantom shortage that copies nothing.)
-Replicates(d) == \E k \in 1..Len(d.tasks) : Len(d.tasks[k].nodes) > 0
-Quiet(hs) == \A n \in hs : LET d == Decide27(n, hs, {}, {}) IN ~Replicates(d) /\ d.del = "none"
-NoTasks(hs) == \A n \in hs : ~Replicates(Decide27(n, hs, {}, {}))
-t\* a check "replicates" when it hands the replicator a task with at least one candidate node. (With overlapping
-\* rules the code as found keeps calling the replicator with an EMPTY candidate list: a holder remembered from
-\* an earlier rule does not lower the shortage of a later rule - a phantom shortage that copies nothing.)
-Replicates(d) == \E k \in 1..Len(d.tasks) : Len(d.tasks[k].nodes) > 0
-Quiet(hs) == \A n \in hs : LET d == Decide27(n, hs, {}, {}) IN ~Replicates(d) /\ d.del = "none"
-NoTasks(hs) == \A n \in hs : ~Replicates(Decide27(n, hs, {}, {}))
-e\* a check "replicates" when it hands the replicator a task with at least one candidate node. (With overlapping
-\* rules the code as found keeps calling the replicator with an EMPTY candidate list: a holder remembered from
-\* an earlier rule does not lower the shortage of a later rule - a phantom shortage that copies nothing.)
-Replicates(d) == \E k \in 1..Len(d.tasks) : Len(d.tasks[k].nodes) > 0
-Quiet(hs) == \A n \in hs : LET d == Decide27(n, hs, {}, {}) IN ~Replicates(d) /\ d.del = "none"
-NoTasks(hs) == \A n \in hs : ~Replicates(Decide27(n, hs, {}, {}))
-r\* a check "replicates" when it hands the replicator a task with at least one candidate node. (With overlapping
-\* rules the code as found keeps calling the replicator with an EMPTY candidate list: a holder remembered from
-\* an earlier rule does not lower the shortage of a later rule - a phantom shortage that copies nothing.)
-Replicates(d) == \E k \in 1..Len(d.tasks) : Len(d.tasks[k].nodes) > 0
-Quiet(hs) == \A n \in hs : LET d == Decide27(n, hs, {}, {}) IN ~Replicates(d) /\ d.del = "none"
-NoTasks(hs) == \A n \in hs : ~Replicates(Decide27(n, hs, {}, {}))
- \* a check "replicates" when it hands the replicator a task with at least one candidate node. (With overlapping
-\* rules the code as found keeps calling the replicator with an EMPTY candidate list: a holder remembered from
-\* an earlier rule does not lower the shortage of a later rule - a phantom shortage that copies nothing.)
-Replicates(d) == \E k \in 1..Len(d.tasks) : Len(d.tasks[k].nodes) > 0
-Quiet(hs) == \A n \in hs : LET d == Decide27(n, hs, {}, {}) IN ~Replicates(d) /\ d.del = "none"
-NoTasks(hs) == \A n \in hs : ~Replicates(Decide27(n, hs, {}, {}))
-=\* a check "replicates" when it hands the replicator a task with at least one candidate node. (With overlapping
-\* rules the code as found keeps calling the replicator with an EMPTY candidate list: a holder remembered from
-\* an earlier rule does not lower the shortage of a later rule - a phantom shortage that copies nothing.)
-Replicates(d) == \E k \in 1..Len(d.tasks) : Len(d.tasks[k].nodes) > 0
-Quiet(hs) == \A n \in hs : LET d == Decide27(n, hs, {}, {}) IN ~Replicates(d) /\ d.del = "none"
-NoTasks(hs) == \A n \in hs : ~Replicates(Decide27(n, hs, {}, {}))
-=\* a check "replicates" when it hands the replicator a task with at least one candidate node. (With overlapping
-\* rules the code as found keeps calling the replicator with an EMPTY candidate list: a holder remembered from
-\* an earlier rule does not lower the shortage of a later rule - a phantom shortage that copies nothing.)
-Replicates(d) == \E k \in 1..Len(d.tasks) : Len(d.tasks[k].nodes) > 0
-Quiet(hs) == \A n \in hs : LET d == Decide27(n, hs, {}, {}) IN ~Replicates(d) /\ d.del = "none"
-NoTasks(hs) == \A n \in hs : ~Replicates(Decide27(n, hs, {}, {}))
- \* a check "replicates" when it hands the replicator a task with at least one candidate node. (With overlapping
-\* rules the code as found keeps calling the replicator with an EMPTY candidate list: a holder remembered from
-\* an earlier rule does not lower the shortage of a later rule - a phantom shortage that copies nothing.)
-Replicates(d) == \E k \in 1..Len(d.tasks) : Len(d.tasks[k].nodes) > 0
-Quiet(hs) == \A n \in hs : LET d == Decide27(n, hs, {}, {}) IN ~Replicates(d) /\ d.del = "none"
-NoTasks(hs) == \A n \in hs : ~Replicates(Decide27(n, hs, {}, {}))
-1\* a check "replicates" when it hands the replicator a task with at least one candidate node. (With overlapping
-\* rules the code as found keeps calling the replicator with an EMPTY candidate list: a holder remembered from
-\* an earlier rule does not lower the shortage of a later rule - a phantom shortage that copies nothing.)
-Replicates(d) == \E k \in 1..Len(d.tasks) : Len(d.tasks[k].nodes) > 0
-Quiet(hs) == \A n \in hs : LET d == Decide27(n, hs, {}, {}) IN ~Replicates(d) /\ d.del = "none"
-NoTasks(hs) == \A n \in hs : ~Replicates(Decide27(n, hs, {}, {}))
-.\* a check "replicates" when it hands the replicator a task with at least one candidate node. (With overlapping
-\* rules the code as found keeps calling the replicator with an EMPTY candidate list: a holder remembered from
-\* an earlier rule does not lower the shortage of a later rule - a phantom shortage that copies nothing.)
-Replicates(d) == \E k \in 1..Len(d.tasks) : Len(d.tasks[k].nodes) > 0
-Quiet(hs) == \A n \in hs : LET d == Decide27(n, hs, {}, {}) IN ~Replicates(d) /\ d.del = "none"
-NoTasks(hs) == \A n \in hs : ~Replicates(Decide27(n, hs, {}, {}))
-.\* a check "replicates" when it hands the replicator a task with at least one candidate node. (With overlapping
-\* rules the code as found keeps calling the replicator with an EMPTY candidate list: a holder remembered from
-\* an earlier rule does not lower the shortage of a later rule - a phantom shortage that copies nothing.)
-Replicates(d) == \E k \in 1..Len(d.tasks) : Len(d.tasks[k].nodes) > 0
-Quiet(hs) == \A n \in hs : LET d == Decide27(n, hs, {}, {}) IN ~Replicates(d) /\ d.del = "none"
-NoTasks(hs) == \A n \in hs : ~Replicates(Decide27(n, hs, {}, {}))
-N\* a check "replicates" when it hands the replicator a task with at least one candidate node. (With overlapping
-\* rules the code as found keeps calling the replicator with an EMPTY candidate list: a holder remembered from
-\* an earlier rule does not lower the shortage of a later rule - a phantom shortage that copies nothing.)
-Replicates(d) == \E k \in 1..Len(d.tasks) : Len(d.tasks[k].nodes) > 0
-Quiet(hs) == \A n \in hs : LET d == Decide27(n, hs, {}, {}) IN ~Replicates(d) /\ d.del = "none"
-NoTasks(hs) == \A n \in hs : ~Replicates(Decide27(n, hs, {}, {}))
-
-\* a check "replicates" when it hands the replicator a task with at least one candidate node. (With overlapping
-\* rules the code as found keeps calling the replicator with an EMPTY candidate list: a holder remembered from
-\* an earlier rule does not lower the shortage of a later rule - a phantom shortage that copies nothing.)
-Replicates(d) == \E k \in 1..Len(d.tasks) : Len(d.tasks[k].nodes) > 0
-Quiet(hs) == \A n \in hs : LET d == Decide27(n, hs, {}, {}) IN ~Replicates(d) /\ d.del = "none"
-NoTasks(hs) == \A n \in hs : ~Replicates(Decide27(n, hs, {}, {}))
-\\* a check "replicates" when it hands the replicator a task with at least one candidate node. (With overlapping
-\* rules the code as found keeps calling the replicator with an EMPTY candidate list: a holder remembered from
-\* an earlier rule does not lower the shortage of a later rule - a phantom shortage that copies nothing.)
-Replicates(d) == \E k \in 1..Len(d.tasks) : Len(d.tasks[k].nodes) > 0
-Quiet(hs) == \A n \in hs : LET d == Decide27(n, hs, {}, {}) IN ~Replicates(d) /\ d.del = "none"
-NoTasks(hs) == \A n \in hs : ~Replicates(Decide27(n, hs, {}, {}))
-*\* a check "replicates" when it hands the replicator a task with at least one candidate node. (With overlapping
-\* rules the code as found keeps calling the replicator with an EMPTY candidate list: a holder remembered from
-\* an earlier rule does not lower the shortage of a later rule - a phantom shortage that copies nothing.)
-Replicates(d) == \E k \in 1..Len(d.tasks) : Len(d.tasks[k].nodes) > 0
-Quiet(hs) == \A n \in hs : LET d == Decide27(n, hs, {}, {}) IN ~Replicates(d) /\ d.del = "none"
-NoTasks(hs) == \A n \in hs : ~Replicates(Decide27(n, hs, {}, {}))
- \* a check "replicates" when it hands the replicator a task with at least one candidate node. (With overlapping
-\* rules the code as found keeps calling the replicator with an EMPTY candidate list: a holder remembered from
-\* an earlier rule does not lower the shortage of a later rule - a phantom shortage that copies nothing.)
-Replicates(d) == \E k \in 1..Len(d.tasks) : Len(d.tasks[k].nodes) > 0
-Quiet(hs) == \A n \in hs : LET d == Decide27(n, hs, {}, {}) IN ~Replicates(d) /\ d.del = "none"
-NoTasks(hs) == \A n \in hs : ~Replicates(Decide27(n, hs, {}, {}))
-t\* a check "replicates" when it hands the replicator a task with at least one candidate node. (With overlapping
-\* rules the code as found keeps calling the replicator with an EMPTY candidate list: a holder remembered from
-\* an earlier rule does not lower the shortage of a later rule - a phantom shortage that copies nothing.)
-Replicates(d) == \E k \in 1..Len(d.tasks) : Len(d.tasks[k].nodes) > 0
-Quiet(hs) == \A n \in hs : LET d == Decide27(n, hs, {}, {}) IN ~Replicates(d) /\ d.del = "none"
-NoTasks(hs) == \A n \in hs : ~Replicates(Decide27(n, hs, {}, {}))
-h\* a check "replicates" when it hands the replicator a task with at least one candidate node. (With overlapping
-\* rules the code as found keeps calling the replicator with an EMPTY candidate list: a holder remembered from
-\* an earlier rule does not lower the shortage of a later rule - a phantom shortage that copies nothing.)
-Replicates(d) == \E k \in 1..Len(d.tasks) : Len(d.tasks[k].nodes) > 0
-Quiet(hs) == \A n \in hs : LET d == Decide27(n, hs, {}, {}) IN ~Replicates(d) /\ d.del = "none"
-NoTasks(hs) == \A n \in hs : ~Replicates(Decide27(n, hs, {}, {}))
-e\* a check "replicates" when it hands the replicator a task with at least one candidate node. (With overlapping
-\* rules the code as found keeps calling the replicator with an EMPTY candidate list: a holder remembered from
-\* an earlier rule does not lower the shortage of a later rule - a phantom shortage that copies nothing.)
-Replicates(d) == \E k \in 1..Len(d.tasks) : Len(d.tasks[k].nodes) > 0
-Quiet(hs) == \A n \in hs : LET d == Decide27(n, hs, {}, {}) IN ~Replicates(d) /\ d.del = "none"
-NoTasks(hs) == \A n \in hs : ~Replicates(Decide27(n, hs, {}, {}))
- \* a check "replicates" when it hands the replicator a task with at least one candidate node. (With overlapping
-\* rules the code as found keeps calling the replicator with an EMPTY candidate list: a holder remembered from
-\* an earlier rule does not lower the shortage of a later rule - a phantom shortage that copies nothing.)
-Replicates(d) == \E k \in 1..Len(d.tasks) : Len(d.tasks[k].nodes) > 0
-Quiet(hs) == \A n \in hs : LET d == Decide27(n, hs, {}, {}) IN ~Replicates(d) /\ d.del = "none"
-NoTasks(hs) == \A n \in hs : ~Replicates(Decide27(n, hs, {}, {}))
-d\* a check "replicates" when it hands the replicator a task with at least one candidate node. (With overlapping
-\* rules the code as found keeps calling the replicator with an EMPTY candidate list: a holder remembered from
-\* an earlier rule does not lower the shortage of a later rule - a phantom shortage that copies nothing.)
-Replicates(d) == \E k \in 1..Len(d.tasks) : Len(d.tasks[k].nodes) > 0
-Quiet(hs) == \A n \in hs : LET d == Decide27(n, hs, {}, {}) IN ~Replicates(d) /\ d.del = "none"
-NoTasks(hs) == \A n \in hs : ~Replicates(Decide27(n, hs, {}, {}))
-e\* a check "replicates" when it hands the replicator a task with at least one candidate node. (With overlapping
-\* rules the code as found keeps calling the replicator with an EMPTY candidate list: a holder remembered from
-\* an earlier rule does not lower the shortage of a later rule - a phantom shortage that copies nothing.)
-Replicates(d) == \E k \in 1..Len(d.tasks) : Len(d.tasks[k].nodes) > 0
-Quiet(hs) == \A n \in hs : LET d == Decide27(n, hs, {}, {}) IN ~Replicates(d) /\ d.del = "none"
-NoTasks(hs) == \A n \in hs : ~Replicates(Decide27(n, hs, {}, {}))
-c\* a check "replicates" when it hands the replicator a task with at least one candidate node. (With overlapping
-\* rules the code as found keeps calling the replicator with an EMPTY candidate list: a holder remembered from
-\* an earlier rule does not lower the shortage of a later rule - a phantom shortage that copies nothing.)
-Replicates(d) == \E k \in 1..Len(d.tasks) : Len(d.tasks[k].nodes) > 0
-Quiet(hs) == \A n \in hs : LET d == Decide27(n, hs, {}, {}) IN ~Replicates(d) /\ d.del = "none"
-NoTasks(hs) == \A n \in hs : ~Replicates(Decide27(n, hs, {}, {}))
-i\* a check "replicates" when it hands the replicator a task with at least one candidate node. (With overlapping
-\* rules the code as found keeps calling the replicator with an EMPTY candidate list: a holder remembered from
-\* an earlier rule does not lower the shortage of a later rule - a phantom shortage that copies nothing.)
-Replicates(d) == \E k \in 1..Len(d.tasks) : Len(d.tasks[k].nodes) > 0
-Quiet(hs) == \A n \in hs : LET d == Decide27(n, hs, {}, {}) IN ~Replicates(d) /\ d.del = "none"
-NoTasks(hs) == \A n \in hs : ~Replicates(Decide27(n, hs, {}, {}))
-s\* a check "replicates" when it hands the replicator a task with at least one candidate node. (With overlapping
-\* rules the code as found keeps calling the replicator with an EMPTY candidate list: a holder remembered from
-\* an earlier rule does not lower the shortage of a later rule - a phantom shortage that copies nothing.)
-Replicates(d) == \E k \in 1..Len(d.tasks) : Len(d.tasks[k].nodes) > 0
-Quiet(hs) == \A n \in hs : LET d == Decide27(n, hs, {}, {}) IN ~Replicates(d) /\ d.del = "none"
-NoTasks(hs) == \A n \in hs : ~Replicates(Decide27(n, hs, {}, {}))
-i\* a check "replicates" when it hands the replicator a task with at least one candidate node. (With overlapping
-\* rules the code as found keeps calling the replicator with an EMPTY candidate list: a holder remembered from
-\* an earlier rule does not lower the shortage of a later rule - a phantom shortage that copies nothing.)
-Replicates(d) == \E k \in 1..Len(d.tasks) : Len(d.tasks[k].nodes) > 0
-Quiet(hs) == \A n \in hs : LET d == Decide27(n, hs, {}, {}) IN ~Replicates(d) /\ d.del = "none"
-NoTasks(hs) == \A n \in hs : ~Replicates(Decide27(n, hs, {}, {}))
-o\* a check "replicates" when it hands the replicator a task with at least one candidate node. (With overlapping
-\* rules the code as found keeps calling the replicator with an EMPTY candidate list: a holder remembered from
-\* an earlier rule does not lower the shortage of a later rule - a phantom shortage that copies nothing.)
-Replicates(d) == \E k \in 1..Len(d.tasks) : Len(d.tasks[k].nodes) > 0
-Quiet(hs) == \A n \in hs : LET d == Decide27(n, hs, {}, {}) IN ~Replicates(d) /\ d.del = "none"
-NoTasks(hs) == \A n \in hs : ~Replicates(Decide27(n, hs, {}, {}))
-n\* a check "replicates" when it hands the replicator a task with at least one candidate node. (With overlapping
-\* rules the code as found keeps calling the replicator with an EMPTY candidate list: a holder remembered from
-\* an earlier rule does not lower the shortage of a later rule - a phantom shortage that copies nothing.)
-Replicates(d) == \E k \in 1..Len(d.tasks) : Len(d.tasks[k].nodes) > 0
-Quiet(hs) == \A n \in hs : LET d == Decide27(n, hs, {}, {}) IN ~Replicates(d) /\ d.del = "none"
-NoTasks(hs) == \A n \in hs : ~Replicates(Decide27(n, hs, {}, {}))
- \* a check "replicates" when it hands the replicator a task with at least one candidate node. (With overlapping
-\* rules the code as found keeps calling the replicator with an EMPTY candidate list: a holder remembered from
-\* an earlier rule does not lower the shortage of a later rule - a phantom shortage that copies nothing.)
-Replicates(d) == \E k \in 1..Len(d.tasks) : Len(d.tasks[k].nodes) > 0
-Quiet(hs) == \A n \in hs : LET d == Decide27(n, hs, {}, {}) IN ~Replicates(d) /\ d.del = "none"
-NoTasks(hs) == \A n \in hs : ~Replicates(Decide27(n, hs, {}, {}))
-f\* a check "replicates" when it hands the replicator a task with at least one candidate node. (With overlapping
-\* rules the code as found keeps calling the replicator with an EMPTY candidate list: a holder remembered from
-\* an earlier rule does not lower the shortage of a later rule - a phantom shortage that copies nothing.)
-Replicates(d) == \E k \in 1..Len(d.tasks) : Len(d.tasks[k].nodes) > 0
-Quiet(hs) == \A n \in hs : LET d == Decide27(n, hs, {}, {}) IN ~Replicates(d) /\ d.del = "none"
-NoTasks(hs) == \A n \in hs : ~Replicates(Decide27(n, hs, {}, {}))
-u\* a check "replicates" when it hands the replicator a task with at least one candidate node. (With overlapping
-\* rules the code as found keeps calling the replicator with an EMPTY candidate list: a holder remembered from
-\* an earlier rule does not lower the shortage of a later rule - a phantom shortage that copies nothing.)
-Replicates(d) == \E k \in 1..Len(d.tasks) : Len(d.tasks[k].nodes) > 0
-Quiet(hs) == \A n \in hs : LET d == Decide27(n, hs, {}, {}) IN ~Replicates(d) /\ d.del = "none"
-NoTasks(hs) == \A n \in hs : ~Replicates(Decide27(n, hs, {}, {}))
-n\* a check "replicates" when it hands the replicator a task with at least one candidate node. (With overlapping
-\* rules the code as found keeps calling the replicator with an EMPTY candidate list: a holder remembered from
-\* an earlier rule does not lower the shortage of a later rule - a phantom shortage that copies nothing.)
-Replicates(d) == \E k \in 1..Len(d.tasks) : Len(d.tasks[k].nodes) > 0
-Quiet(hs) == \A n \in hs : LET d == Decide27(n, hs, {}, {}) IN ~Replicates(d) /\ d.del = "none"
-NoTasks(hs) == \A n \in hs : ~Replicates(Decide27(n, hs, {}, {}))
-c\* a check "replicates" when it hands the replicator a task with at least one candidate node. (With overlapping
-\* rules the code as found keeps calling the replicator with an EMPTY candidate list: a holder remembered from
-\* an earlier rule does not lower the shortage of a later rule - a phantom shortage that copies nothing.)
-Replicates(d) == \E k \in 1..Len(d.tasks) : Len(d.tasks[k].nodes) > 0
-Quiet(hs) == \A n \in hs : LET d == Decide27(n, hs, {}, {}) IN ~Replicates(d) /\ d.del = "none"
-NoTasks(hs) == \A n \in hs : ~Replicates(Decide27(n, hs, {}, {}))
-t\* a check "replicates" when it hands the replicator a task with at least one candidate node. (With overlapping
-\* rules the code as found keeps calling the replicator with an EMPTY candidate list: a holder remembered from
-\* an earlier rule does not lower the shortage of a later rule - a phantom shortage that copies nothing.)
-Replicates(d) == \E k \in 1..Len(d.tasks) : Len(d.tasks[k].nodes) > 0
-Quiet(hs) == \A n \in hs : LET d == Decide27(n, hs, {}, {}) IN ~Replicates(d) /\ d.del = "none"
-NoTasks(hs) == \A n \in hs : ~Replicates(Decide27(n, hs, {}, {}))
-i\* a check "replicates" when it hands the replicator a task with at least one candidate node. (With overlapping
-\* rules the code as found keeps calling the replicator with an EMPTY candidate list: a holder remembered from
-\* an earlier rule does not lower the shortage of a later rule - a phantom shortage that copies nothing.)
-Replicates(d) == \E k \in 1..Len(d.tasks) : Len(d.tasks[k].nodes) > 0
-Quiet(hs) == \A n \in hs : LET d == Decide27(n, hs, {}, {}) IN ~Replicates(d) /\ d.del = "none"
-NoTasks(hs) == \A n \in hs : ~Replicates(Decide27(n, hs, {}, {}))
-o\* a check "replicates" when it hands the replicator a task with at least one candidate node. (With overlapping
-\* rules the code as found keeps calling the replicator with an EMPTY candidate list: a holder remembered from
-\* an earlier rule does not lower the shortage of a later rule - a phantom shortage that copies nothing.)
-Replicates(d) == \E k \in 1..Len(d.tasks) : Len(d.tasks[k].nodes) > 0
-Quiet(hs) == \A n \in hs : LET d == Decide27(n, hs, {}, {}) IN ~Replicates(d) /\ d.del = "none"
-NoTasks(hs) == \A n \in hs : ~Replicates(Decide27(n, hs, {}, {}))
-n\* a check "replicates" when it hands the replicator a task with at least one candidate node. (With overlapping
-\* rules the code as found keeps calling the replicator with an EMPTY candidate list: a holder remembered from
-\* an earlier rule does not lower the shortage of a later rule - a phantom shortage that copies nothing.)
-Replicates(d) == \E k \in 1..Len(d.tasks) : Len(d.tasks[k].nodes) > 0
-Quiet(hs) == \A n \in hs : LET d == Decide27(n, hs, {}, {}) IN ~Replicates(d) /\ d.del = "none"
-NoTasks(hs) == \A n \in hs : ~Replicates(Decide27(n, hs, {}, {}))
- \* a check "replicates" when it hands the replicator a task with at least one candidate node. (With overlapping
-\* rules the code as found keeps calling the replicator with an EMPTY candidate list: a holder remembered from
-\* an earlier rule does not lower the shortage of a later rule - a phantom shortage that copies nothing.)
-Replicates(d) == \E k \in 1..Len(d.tasks) : Len(d.tasks[k].nodes) > 0
-Quiet(hs) == \A n \in hs : LET d == Decide27(n, hs, {}, {}) IN ~Replicates(d) /\ d.del = "none"
-NoTasks(hs) == \A n \in hs : ~Replicates(Decide27(n, hs, {}, {}))
-i\* a check "replicates" when it hands the replicator a task with at least one candidate node. (With overlapping
-\* rules the code as found keeps calling the replicator with an EMPTY candidate list: a holder remembered from
-\* an earlier rule does not lower the shortage of a later rule - a phantom shortage that copies nothing.)
-Replicates(d) == \E k \in 1..Len(d.tasks) : Len(d.tasks[k].nodes) > 0
-Quiet(hs) == \A n \in hs : LET d == Decide27(n, hs, {}, {}) IN ~Replicates(d) /\ d.del = "none"
-NoTasks(hs) == \A n \in hs : ~Replicates(Decide27(n, hs, {}, {}))
-s\* a check "replicates" when it hands the replicator a task with at least one candidate node. (With overlapping
-\* rules the code as found keeps calling the replicator with an EMPTY candidate list: a holder remembered from
-\* an earlier rule does not lower the shortage of a later rule - a phantom shortage that copies nothing.)
-Replicates(d) == \E k \in 1..Len(d.tasks) : Len(d.tasks[k].nodes) > 0
-Quiet(hs) == \A n \in hs : LET d == Decide27(n, hs, {}, {}) IN ~Replicates(d) /\ d.del = "none"
-NoTasks(hs) == \A n \in hs : ~Replicates(Decide27(n, hs, {}, {}))
- \* a check "replicates" when it hands the replicator a task with at least one candidate node. (With overlapping
-\* rules the code as found keeps calling the replicator with an EMPTY candidate list: a holder remembered from
-\* an earlier rule does not lower the shortage of a later rule - a phantom shortage that copies nothing.)
-Replicates(d) == \E k \in 1..Len(d.tasks) : Len(d.tasks[k].nodes) > 0
-Quiet(hs) == \A n \in hs : LET d == Decide27(n, hs, {}, {}) IN ~Replicates(d) /\ d.del = "none"
-NoTasks(hs) == \A n \in hs : ~Replicates(Decide27(n, hs, {}, {}))
-w\* a check "replicates" when it hands the replicator a task with at least one candidate node. (With overlapping
-\* rules the code as found keeps calling the replicator with an EMPTY candidate list: a holder remembered from
-\* an earlier rule does not lower the shortage of a later rule - a phantom shortage that copies nothing.)
-Replicates(d) == \E k \in 1..Len(d.tasks) : Len(d.tasks[k].nodes) > 0
-Quiet(hs) == \A n \in hs : LET d == Decide27(n, hs, {}, {}) IN ~Replicates(d) /\ d.del = "none"
-NoTasks(hs) == \A n \in hs : ~Replicates(Decide27(n, hs, {}, {}))
-r\* a check "replicates" when it hands the replicator a task with at least one candidate node. (With overlapping
-\* rules the code as found keeps calling the replicator with an EMPTY candidate list: a holder remembered from
-\* an earlier rule does not lower the shortage of a later rule - a phantom shortage that copies nothing.)
-Replicates(d) == \E k \in 1..Len(d.tasks) : Len(d.tasks[k].nodes) > 0
-Quiet(hs) == \A n \in hs : LET d == Decide27(n, hs, {}, {}) IN ~Replicates(d) /\ d.del = "none"
-NoTasks(hs) == \A n \in hs : ~Replicates(Decide27(n, hs, {}, {}))
-i\* a check "replicates" when it hands the replicator a task with at least one candidate node. (With overlapping
-\* rules the code as found keeps calling the replicator with an EMPTY candidate list: a holder remembered from
-\* an earlier rule does not lower the shortage of a later rule - a phantom shortage that copies nothing.)
-Replicates(d) == \E k \in 1..Len(d.tasks) : Len(d.tasks[k].nodes) > 0
-Quiet(hs) == \A n \in hs : LET d == Decide27(n, hs, {}, {}) IN ~Replicates(d) /\ d.del = "none"
-NoTasks(hs) == \A n \in hs : ~Replicates(Decide27(n, hs, {}, {}))
-t\* a check "replicates" when it hands the replicator a task with at least one candidate node. (With overlapping
-\* rules the code as found keeps calling the replicator with an EMPTY candidate list: a holder remembered from
-\* an earlier rule does not lower the shortage of a later rule - a phantom shortage that copies nothing.)
-Replicates(d) == \E k \in 1..Len(d.tasks) : Len(d.tasks[k].nodes) > 0
-Quiet(hs) == \A n \in hs : LET d == Decide27(n, hs, {}, {}) IN ~Replicates(d) /\ d.del = "none"
-NoTasks(hs) == \A n \in hs : ~Replicates(Decide27(n, hs, {}, {}))
-t\* a check "replicates" when it hands the replicator a task with at least one candidate node. (With overlapping
-\* rules the code as found keeps calling the replicator with an EMPTY candidate list: a holder remembered from
-\* an earlier rule does not lower the shortage of a later rule - a phantom shortage that copies nothing.)
-Replicates(d) == \E k \in 1..Len(d.tasks) : Len(d.tasks[k].nodes) > 0
-Quiet(hs) == \A n \in hs : LET d == Decide27(n, hs, {}, {}) IN ~Replicates(d) /\ d.del = "none"
-NoTasks(hs) == \A n \in hs : ~Replicates(Decide27(n, hs, {}, {}))
-e\* a check "replicates" when it hands the replicator a task with at least one candidate node. (With overlapping
-\* rules the code as found keeps calling the replicator with an EMPTY candidate list: a holder remembered from
-\* an earlier rule does not lower the shortage of a later rule - a phantom shortage that copies nothing.)
-Replicates(d) == \E k \in 1..Len(d.tasks) : Len(d.tasks[k].nodes) > 0
-Quiet(hs) == \A n \in hs : LET d == Decide27(n, hs, {}, {}) IN ~Replicates(d) /\ d.del = "none"
-NoTasks(hs) == \A n \in hs : ~Replicates(Decide27(n, hs, {}, {}))
-n\* a check "replicates" when it hands the replicator a task with at least one candidate node. (With overlapping
-\* rules the code as found keeps calling the replicator with an EMPTY candidate list: a holder remembered from
-\* an earlier rule does not lower the shortage of a later rule - a phantom shortage that copies nothing.)
-Replicates(d) == \E k \in 1..Len(d.tasks) : Len(d.tasks[k].nodes) > 0
-Quiet(hs) == \A n \in hs : LET d == Decide27(n, hs, {}, {}) IN ~Replicates(d) /\ d.del = "none"
-NoTasks(hs) == \A n \in hs : ~Replicates(Decide27(n, hs, {}, {}))
- \* a check "replicates" when it hands the replicator a task with at least one candidate node. (With overlapping
-\* rules the code as found keeps calling the replicator with an EMPTY candidate list: a holder remembered from
-\* an earlier rule does not lower the shortage of a later rule - a phantom shortage that copies nothing.)
-Replicates(d) == \E k \in 1..Len(d.tasks) : Len(d.tasks[k].nodes) > 0
-Quiet(hs) == \A n \in hs : LET d == Decide27(n, hs, {}, {}) IN ~Replicates(d) /\ d.del = "none"
-NoTasks(hs) == \A n \in hs : ~Replicates(Decide27(n, hs, {}, {}))
-f\* a check "replicates" when it hands the replicator a task with at least one candidate node. (With overlapping
-\* rules the code as found keeps calling the replicator with an EMPTY candidate list: a holder remembered from
-\* an earlier rule does not lower the shortage of a later rule - a phantom shortage that copies nothing.)
-Replicates(d) == \E k \in 1..Len(d.tasks) : Len(d.tasks[k].nodes) > 0
-Quiet(hs) == \A n \in hs : LET d == Decide27(n, hs, {}, {}) IN ~Replicates(d) /\ d.del = "none"
-NoTasks(hs) == \A n \in hs : ~Replicates(Decide27(n, hs, {}, {}))
-o\* a check "replicates" when it hands the replicator a task with at least one candidate node. (With overlapping
-\* rules the code as found keeps calling the replicator with an EMPTY candidate list: a holder remembered from
-\* an earlier rule does not lower the shortage of a later rule - a phantom shortage that copies nothing.)
-Replicates(d) == \E k \in 1..Len(d.tasks) : Len(d.tasks[k].nodes) > 0
-Quiet(hs) == \A n \in hs : LET d == Decide27(n, hs, {}, {}) IN ~Replicates(d) /\ d.del = "none"
-NoTasks(hs) == \A n \in hs : ~Replicates(Decide27(n, hs, {}, {}))
-r\* a check "replicates" when it hands the replicator a task with at least one candidate node. (With overlapping
-\* rules the code as found keeps calling the replicator with an EMPTY candidate list: a holder remembered from
-\* an earlier rule does not lower the shortage of a later rule - a phantom shortage that copies nothing.)
-Replicates(d) == \E k \in 1..Len(d.tasks) : Len(d.tasks[k].nodes) > 0
-Quiet(hs) == \A n \in hs : LET d == Decide27(n, hs, {}, {}) IN ~Replicates(d) /\ d.del = "none"
-NoTasks(hs) == \A n \in hs : ~Replicates(Decide27(n, hs, {}, {}))
- \* a check "replicates" when it hands the replicator a task with at least one candidate node. (With overlapping
-\* rules the code as found keeps calling the replicator with an EMPTY candidate list: a holder remembered from
-\* an earlier rule does not lower the shortage of a later rule - a phantom shortage that copies nothing.)
-Replicates(d) == \E k \in 1..Len(d.tasks) : Len(d.tasks[k].nodes) > 0
-Quiet(hs) == \A n \in hs : LET d == Decide27(n, hs, {}, {}) IN ~Replicates(d) /\ d.del = "none"
-NoTasks(hs) == \A n \in hs : ~Replicates(Decide27(n, hs, {}, {}))
-t\* a check "replicates" when it hands the replicator a task with at least one candidate node. (With overlapping
-\* rules the code as found keeps calling the replicator with an EMPTY candidate list: a holder remembered from
-\* an earlier rule does not lower the shortage of a later rule - a phantom shortage that copies nothing.)
-Replicates(d) == \E k \in 1..Len(d.tasks) : Len(d.tasks[k].nodes) > 0
-Quiet(hs) == \A n \in hs : LET d == Decide27(n, hs, {}, {}) IN ~Replicates(d) /\ d.del = "none"
-NoTasks(hs) == \A n \in hs : ~Replicates(Decide27(n, hs, {}, {}))
-h\* a check "replicates" when it hands the replicator a task with at least one candidate node. (With overlapping
-\* rules the code as found keeps calling the replicator with an EMPTY candidate list: a holder remembered from
-\* an earlier rule does not lower the shortage of a later rule - a phantom shortage that copies nothing.)
-Replicates(d) == \E k \in 1..Len(d.tasks) : Len(d.tasks[k].nodes) > 0
-Quiet(hs) == \A n \in hs : LET d == Decide27(n, hs, {}, {}) IN ~Replicates(d) /\ d.del = "none"
-NoTasks(hs) == \A n \in hs : ~Replicates(Decide27(n, hs, {}, {}))
-e\* a check "replicates" when it hands the replicator a task with at least one candidate node. (With overlapping
-\* rules the code as found keeps calling the replicator with an EMPTY candidate list: a holder remembered from
-\* an earlier rule does not lower the shortage of a later rule - a phantom shortage that copies nothing.)
-Replicates(d) == \E k \in 1..Len(d.tasks) : Len(d.tasks[k].nodes) > 0
-Quiet(hs) == \A n \in hs : LET d == Decide27(n, hs, {}, {}) IN ~Replicates(d) /\ d.del = "none"
-NoTasks(hs) == \A n \in hs : ~Replicates(Decide27(n, hs, {}, {}))
- \* a check "replicates" when it hands the replicator a task with at least one candidate node. (With overlapping
-\* rules the code as found keeps calling the replicator with an EMPTY candidate list: a holder remembered from
-\* an earlier rule does not lower the shortage of a later rule - a phantom shortage that copies nothing.)
-Replicates(d) == \E k \in 1..Len(d.tasks) : Len(d.tasks[k].nodes) > 0
-Quiet(hs) == \A n \in hs : LET d == Decide27(n, hs, {}, {}) IN ~Replicates(d) /\ d.del = "none"
-NoTasks(hs) == \A n \in hs : ~Replicates(Decide27(n, hs, {}, {}))
-l\* a check "replicates" when it hands the replicator a task with at least one candidate node. (With overlapping
-\* rules the code as found keeps calling the replicator with an EMPTY candidate list: a holder remembered from
-\* an earlier rule does not lower the shortage of a later rule - a phantom shortage that copies nothing.)
-Replicates(d) == \E k \in 1..Len(d.tasks) : Len(d.tasks[k].nodes) > 0
-Quiet(hs) == \A n \in hs : LET d == Decide27(n, hs, {}, {}) IN ~Replicates(d) /\ d.del = "none"
-NoTasks(hs) == \A n \in hs : ~Replicates(Decide27(n, hs, {}, {}))
-o\* a check "replicates" when it hands the replicator a task with at least one candidate node. (With overlapping
-\* rules the code as found keeps calling the replicator with an EMPTY candidate list: a holder remembered from
-\* an earlier rule does not lower the shortage of a later rule - a phantom shortage that copies nothing.)
-Replicates(d) == \E k \in 1..Len(d.tasks) : Len(d.tasks[k].nodes) > 0
-Quiet(hs) == \A n \in hs : LET d == Decide27(n, hs, {}, {}) IN ~Replicates(d) /\ d.del = "none"
-NoTasks(hs) == \A n \in hs : ~Replicates(Decide27(n, hs, {}, {}))
-c\* a check "replicates" when it hands the replicator a task with at least one candidate node. (With overlapping
-\* rules the code as found keeps calling the replicator with an EMPTY candidate list: a holder remembered from
-\* an earlier rule does not lower the shortage of a later rule - a phantom shortage that copies nothing.)
-Replicates(d) == \E k \in 1..Len(d.tasks) : Len(d.tasks[k].nodes) > 0
-Quiet(hs) == \A n \in hs : LET d == Decide27(n, hs, {}, {}) IN ~Replicates(d) /\ d.del = "none"
-NoTasks(hs) == \A n \in hs : ~Replicates(Decide27(n, hs, {}, {}))
-a\* a check "replicates" when it hands the replicator a task with at least one candidate node. (With overlapping
-\* rules the code as found keeps calling the replicator with an EMPTY candidate list: a holder remembered from
-\* an earlier rule does not lower the shortage of a later rule - a phantom shortage that copies nothing.)
-Replicates(d) == \E k \in 1..Len(d.tasks) : Len(d.tasks[k].nodes) > 0
-Quiet(hs) == \A n \in hs : LET d == Decide27(n, hs, {}, {}) IN ~Replicates(d) /\ d.del = "none"
-NoTasks(hs) == \A n \in hs : ~Replicates(Decide27(n, hs, {}, {}))
-l\* a check "replicates" when it hands the replicator a task with at least one candidate node. (With overlapping
-\* rules the code as found keeps calling the replicator with an EMPTY candidate list: a holder remembered from
-\* an earlier rule does not lower the shortage of a later rule - a phantom shortage that copies nothing.)
-Replicates(d) == \E k \in 1..Len(d.tasks) : Len(d.tasks[k].nodes) > 0
-Quiet(hs) == \A n \in hs : LET d == Decide27(n, hs, {}, {}) IN ~Replicates(d) /\ d.del = "none"
-NoTasks(hs) == \A n \in hs : ~Replicates(Decide27(n, hs, {}, {}))
- \* a check "replicates" when it hands the replicator a task with at least one candidate node. (With overlapping
-\* rules the code as found keeps calling the replicator with an EMPTY candidate list: a holder remembered from
-\* an earlier rule does not lower the shortage of a later rule - a phantom shortage that copies nothing.)
-Replicates(d) == \E k \in 1..Len(d.tasks) : Len(d.tasks[k].nodes) > 0
-Quiet(hs) == \A n \in hs : LET d == Decide27(n, hs, {}, {}) IN ~Replicates(d) /\ d.del = "none"
-NoTasks(hs) == \A n \in hs : ~Replicates(Decide27(n, hs, {}, {}))
-n\* a check "replicates" when it hands the replicator a task with at least one candidate node. (With overlapping
-\* rules the code as found keeps calling the replicator with an EMPTY candidate list: a holder remembered from
-\* an earlier rule does not lower the shortage of a later rule - a phantom shortage that copies nothing.)
-Replicates(d) == \E k \in 1..Len(d.tasks) : Len(d.tasks[k].nodes) > 0
-Quiet(hs) == \A n \in hs : LET d == Decide27(n, hs, {}, {}) IN ~Replicates(d) /\ d.del = "none"
-NoTasks(hs) == \A n \in hs : ~Replicates(Decide27(n, hs, {}, {}))
-o\* a check "replicates" when it hands the replicator a task with at least one candidate node. (With overlapping
-\* rules the code as found keeps calling the replicator with an EMPTY candidate list: a holder remembered from
-\* an earlier rule does not lower the shortage of a later rule - a phantom shortage that copies nothing.)
-Replicates(d) == \E k \in 1..Len(d.tasks) : Len(d.tasks[k].nodes) > 0
-Quiet(hs) == \A n \in hs : LET d == Decide27(n, hs, {}, {}) IN ~Replicates(d) /\ d.del = "none"
-NoTasks(hs) == \A n \in hs : ~Replicates(Decide27(n, hs, {}, {}))
-d\* a check "replicates" when it hands the replicator a task with at least one candidate node. (With overlapping
-\* rules the code as found keeps calling the replicator with an EMPTY candidate list: a holder remembered from
-\* an earlier rule does not lower the shortage of a later rule - a phantom shortage that copies nothing.)
-Replicates(d) == \E k \in 1..Len(d.tasks) : Len(d.tasks[k].nodes) > 0
-Quiet(hs) == \A n \in hs : LET d == Decide27(n, hs, {}, {}) IN ~Replicates(d) /\ d.del = "none"
-NoTasks(hs) == \A n \in hs : ~Replicates(Decide27(n, hs, {}, {}))
-e\* a check "replicates" when it hands the replicator a task with at least one candidate node. (With overlapping
-\* rules the code as found keeps calling the replicator with an EMPTY candidate list: a holder remembered from
-\* an earlier rule does not lower the shortage of a later rule - a phantom shortage that copies nothing.)
-Replicates(d) == \E k \in 1..Len(d.tasks) : Len(d.tasks[k].nodes) > 0
-Quiet(hs) == \A n \in hs : LET d == Decide27(n, hs, {}, {}) IN ~Replicates(d) /\ d.del = "none"
-NoTasks(hs) == \A n \in hs : ~Replicates(Decide27(n, hs, {}, {}))
- \* a check "replicates" when it hands the replicator a task with at least one candidate node. (With overlapping
-\* rules the code as found keeps calling the replicator with an EMPTY candidate list: a holder remembered from
-\* an earlier rule does not lower the shortage of a later rule - a phantom shortage that copies nothing.)
-Replicates(d) == \E k \in 1..Len(d.tasks) : Len(d.tasks[k].nodes) > 0
-Quiet(hs) == \A n \in hs : LET d == Decide27(n, hs, {}, {}) IN ~Replicates(d) /\ d.del = "none"
-NoTasks(hs) == \A n \in hs : ~Replicates(Decide27(n, hs, {}, {}))
-`\* a check "replicates" when it hands the replicator a task with at least one candidate node. (With overlapping
-\* rules the code as found keeps calling the replicator with an EMPTY candidate list: a holder remembered from
-\* an earlier rule does not lower the shortage of a later rule - a phantom shortage that copies nothing.)
-Replicates(d) == \E k \in 1..Len(d.tasks) : Len(d.tasks[k].nodes) > 0
-Quiet(hs) == \A n \in hs : LET d == Decide27(n, hs, {}, {}) IN ~Replicates(d) /\ d.del = "none"
-NoTasks(hs) == \A n \in hs : ~Replicates(Decide27(n, hs, {}, {}))
-L\* a check "replicates" when it hands the replicator a task with at least one candidate node. (With overlapping
-\* rules the code as found keeps calling the replicator with an EMPTY candidate list: a holder remembered from
-\* an earlier rule does not lower the shortage of a later rule - a phantom shortage that copies nothing.)
-Replicates(d) == \E k \in 1..Len(d.tasks) : Len(d.tasks[k].nodes) > 0
-Quiet(hs) == \A n \in hs : LET d == Decide27(n, hs, {}, {}) IN ~Replicates(d) /\ d.del = "none"
-NoTasks(hs) == \A n \in hs : ~Replicates(Decide27(n, hs, {}, {}))
-o\* a check "replicates" when it hands the replicator a task with at least one candidate node. (With overlapping
-\* rules the code as found keeps calling the replicator with an EMPTY candidate list: a holder remembered from
-\* an earlier rule does not lower the shortage of a later rule - a phantom shortage that copies nothing.)
-Replicates(d) == \E k \in 1..Len(d.tasks) : Len(d.tasks[k].nodes) > 0
-Quiet(hs) == \A n \in hs : LET d == Decide27(n, hs, {}, {}) IN ~Replicates(d) /\ d.del = "none"
-NoTasks(hs) == \A n \in hs : ~Replicates(Decide27(n, hs, {}, {}))
-c\* a check "replicates" when it hands the replicator a task with at least one candidate node. (With overlapping
-\* rules the code as found keeps calling the replicator with an EMPTY candidate list: a holder remembered from
-\* an earlier rule does not lower the shortage of a later rule - a phantom shortage that copies nothing.)
-Replicates(d) == \E k \in 1..Len(d.tasks) : Len(d.tasks[k].nodes) > 0
-Quiet(hs) == \A n \in hs : LET d == Decide27(n, hs, {}, {}) IN ~Replicates(d) /\ d.del = "none"
-NoTasks(hs) == \A n \in hs : ~Replicates(Decide27(n, hs, {}, {}))
-a\* a check "replicates" when it hands the replicator a task with at least one candidate node. (With overlapping
-\* rules the code as found keeps calling the replicator with an EMPTY candidate list: a holder remembered from
-\* an earlier rule does not lower the shortage of a later rule - a phantom shortage that copies nothing.)
-Replicates(d) == \E k \in 1..Len(d.tasks) : Len(d.tasks[k].nodes) > 0
-Quiet(hs) == \A n \in hs : LET d == Decide27(n, hs, {}, {}) IN ~Replicates(d) /\ d.del = "none"
-NoTasks(hs) == \A n \in hs : ~Replicates(Decide27(n, hs, {}, {}))
-l\* a check "replicates" when it hands the replicator a task with at least one candidate node. (With overlapping
-\* rules the code as found keeps calling the replicator with an EMPTY candidate list: a holder remembered from
-\* an earlier rule does not lower the shortage of a later rule - a phantom shortage that copies nothing.)
-Replicates(d) == \E k \in 1..Len(d.tasks) : Len(d.tasks[k].nodes) > 0
-Quiet(hs) == \A n \in hs : LET d == Decide27(n, hs, {}, {}) IN ~Replicates(d) /\ d.del = "none"
-NoTasks(hs) == \A n \in hs : ~Replicates(Decide27(n, hs, {}, {}))
-`\* a check "replicates" when it hands the replicator a task with at least one candidate node. (With overlapping
-\* rules the code as found keeps calling the replicator with an EMPTY candidate list: a holder remembered from
-\* an earlier rule does not lower the shortage of a later rule - a phantom shortage that copies nothing.)
-Replicates(d) == \E k \in 1..Len(d.tasks) : Len(d.tasks[k].nodes) > 0
-Quiet(hs) == \A n \in hs : LET d == Decide27(n, hs, {}, {}) IN ~Replicates(d) /\ d.del = "none"
-NoTasks(hs) == \A n \in hs : ~Replicates(Decide27(n, hs, {}, {}))
-:\* a check "replicates" when it hands the replicator a task with at least one candidate node. (With overlapping
-\* rules the code as found keeps calling the replicator with an EMPTY candidate list: a holder remembered from
-\* an earlier rule does not lower the shortage of a later rule - a phantom shortage that copies nothing.)
-Replicates(d) == \E k \in 1..Len(d.tasks) : Len(d.tasks[k].nodes) > 0
-Quiet(hs) == \A n \in hs : LET d == Decide27(n, hs, {}, {}) IN ~Replicates(d) /\ d.del = "none"
-NoTasks(hs) == \A n \in hs : ~Replicates(Decide27(n, hs, {}, {}))
- \* a check "replicates" when it hands the replicator a task with at least one candidate node. (With overlapping
-\* rules the code as found keeps calling the replicator with an EMPTY candidate list: a holder remembered from
-\* an earlier rule does not lower the shortage of a later rule - a phantom shortage that copies nothing.)
-Replicates(d) == \E k \in 1..Len(d.tasks) : Len(d.tasks[k].nodes) > 0
-Quiet(hs) == \A n \in hs : LET d == Decide27(n, hs, {}, {}) IN ~Replicates(d) /\ d.del = "none"
-NoTasks(hs) == \A n \in hs : ~Replicates(Decide27(n, hs, {}, {}))
-r\* a check "replicates" when it hands the replicator a task with at least one candidate node. (With overlapping
-\* rules the code as found keeps calling the replicator with an EMPTY candidate list: a holder remembered from
-\* an earlier rule does not lower the shortage of a later rule - a phantom shortage that copies nothing.)
-Replicates(d) == \E k \in 1..Len(d.tasks) : Len(d.tasks[k].nodes) > 0
-Quiet(hs) == \A n \in hs : LET d == Decide27(n, hs, {}, {}) IN ~Replicates(d) /\ d.del = "none"
-NoTasks(hs) == \A n \in hs : ~Replicates(Decide27(n, hs, {}, {}))
-e\* a check "replicates" when it hands the replicator a task with at least one candidate node. (With overlapping
-\* rules the code as found keeps calling the replicator with an EMPTY candidate list: a holder remembered from
-\* an earlier rule does not lower the shortage of a later rule - a phantom shortage that copies nothing.)
-Replicates(d) == \E k \in 1..Len(d.tasks) : Len(d.tasks[k].nodes) > 0
-Quiet(hs) == \A n \in hs : LET d == Decide27(n, hs, {}, {}) IN ~Replicates(d) /\ d.del = "none"
-NoTasks(hs) == \A n \in hs : ~Replicates(Decide27(n, hs, {}, {}))
-n\* a check "replicates" when it hands the replicator a task with at least one candidate node. (With overlapping
-\* rules the code as found keeps calling the replicator with an EMPTY candidate list: a holder remembered from
-\* an earlier rule does not lower the shortage of a later rule - a phantom shortage that copies nothing.)
-Replicates(d) == \E k \in 1..Len(d.tasks) : Len(d.tasks[k].nodes) > 0
-Quiet(hs) == \A n \in hs : LET d == Decide27(n, hs, {}, {}) IN ~Replicates(d) /\ d.del = "none"
-NoTasks(hs) == \A n \in hs : ~Replicates(Decide27(n, hs, {}, {}))
-a\* a check "replicates" when it hands the replicator a task with at least one candidate node. (With overlapping
-\* rules the code as found keeps calling the replicator with an EMPTY candidate list: a holder remembered from
-\* an earlier rule does not lower the shortage of a later rule - a phantom shortage that copies nothing.)
-Replicates(d) == \E k \in 1..Len(d.tasks) : Len(d.tasks[k].nodes) > 0
-Quiet(hs) == \A n \in hs : LET d == Decide27(n, hs, {}, {}) IN ~Replicates(d) /\ d.del = "none"
-NoTasks(hs) == \A n \in hs : ~Replicates(Decide27(n, hs, {}, {}))
-m\* a check "replicates" when it hands the replicator a task with at least one candidate node. (With overlapping
-\* rules the code as found keeps calling the replicator with an EMPTY candidate list: a holder remembered from
-\* an earlier rule does not lower the shortage of a later rule - a phantom shortage that copies nothing.)
-Replicates(d) == \E k \in 1..Len(d.tasks) : Len(d.tasks[k].nodes) > 0
-Quiet(hs) == \A n \in hs : LET d == Decide27(n, hs, {}, {}) IN ~Replicates(d) /\ d.del = "none"
-NoTasks(hs) == \A n \in hs : ~Replicates(Decide27(n, hs, {}, {}))
-e\* a check "replicates" when it hands the replicator a task with at least one candidate node. (With overlapping
-\* rules the code as found keeps calling the replicator with an EMPTY candidate list: a holder remembered from
-\* an earlier rule does not lower the shortage of a later rule - a phantom shortage that copies nothing.)
-Replicates(d) == \E k \in 1..Len(d.tasks) : Len(d.tasks[k].nodes) > 0
-Quiet(hs) == \A n \in hs : LET d == Decide27(n, hs, {}, {}) IN ~Replicates(d) /\ d.del = "none"
-NoTasks(hs) == \A n \in hs : ~Replicates(Decide27(n, hs, {}, {}))
- \* a check "replicates" when it hands the replicator a task with at least one candidate node. (With overlapping
-\* rules the code as found keeps calling the replicator with an EMPTY candidate list: a holder remembered from
-\* an earlier rule does not lower the shortage of a later rule - a phantom shortage that copies nothing.)
-Replicates(d) == \E k \in 1..Len(d.tasks) : Len(d.tasks[k].nodes) > 0
-Quiet(hs) == \A n \in hs : LET d == Decide27(n, hs, {}, {}) IN ~Replicates(d) /\ d.del = "none"
-NoTasks(hs) == \A n \in hs : ~Replicates(Decide27(n, hs, {}, {}))
-n\* a check "replicates" when it hands the replicator a task with at least one candidate node. (With overlapping
-\* rules the code as found keeps calling the replicator with an EMPTY candidate list: a holder remembered from
-\* an earlier rule does not lower the shortage of a later rule - a phantom shortage that copies nothing.)
-Replicates(d) == \E k \in 1..Len(d.tasks) : Len(d.tasks[k].nodes) > 0
-Quiet(hs) == \A n \in hs : LET d == Decide27(n, hs, {}, {}) IN ~Replicates(d) /\ d.del = "none"
-NoTasks(hs) == \A n \in hs : ~Replicates(Decide27(n, hs, {}, {}))
-o\* a check "replicates" when it hands the replicator a task with at least one candidate node. (With overlapping
-\* rules the code as found keeps calling the replicator with an EMPTY candidate list: a holder remembered from
-\* an earlier rule does not lower the shortage of a later rule - a phantom shortage that copies nothing.)
-Replicates(d) == \E k \in 1..Len(d.tasks) : Len(d.tasks[k].nodes) > 0
-Quiet(hs) == \A n \in hs : LET d == Decide27(n, hs, {}, {}) IN ~Replicates(d) /\ d.del = "none"
-NoTasks(hs) == \A n \in hs : ~Replicates(Decide27(n, hs, {}, {}))
-d\* a check "replicates" when it hands the replicator a task with at least one candidate node. (With overlapping
-\* rules the code as found keeps calling the replicator with an EMPTY candidate list: a holder remembered from
-\* an earlier rule does not lower the shortage of a later rule - a phantom shortage that copies nothing.)
-Replicates(d) == \E k \in 1..Len(d.tasks) : Len(d.tasks[k].nodes) > 0
-Quiet(hs) == \A n \in hs : LET d == Decide27(n, hs, {}, {}) IN ~Replicates(d) /\ d.del = "none"
-NoTasks(hs) == \A n \in hs : ~Replicates(Decide27(n, hs, {}, {}))
-e\* a check "replicates" when it hands the replicator a task with at least one candidate node. (With overlapping
-\* rules the code as found keeps calling the replicator with an EMPTY candidate list: a holder remembered from
-\* an earlier rule does not lower the shortage of a later rule - a phantom shortage that copies nothing.)
-Replicates(d) == \E k \in 1..Len(d.tasks) : Len(d.tasks[k].nodes) > 0
-Quiet(hs) == \A n \in hs : LET d == Decide27(n, hs, {}, {}) IN ~Replicates(d) /\ d.del = "none"
-NoTasks(hs) == \A n \in hs : ~Replicates(Decide27(n, hs, {}, {}))
- \* a check "replicates" when it hands the replicator a task with at least one candidate node. (With overlapping
-\* rules the code as found keeps calling the replicator with an EMPTY candidate list: a holder remembered from
-\* an earlier rule does not lower the shortage of a later rule - a phantom shortage that copies nothing.)
-Replicates(d) == \E k \in 1..Len(d.tasks) : Len(d.tasks[k].nodes) > 0
-Quiet(hs) == \A n \in hs : LET d == Decide27(n, hs, {}, {}) IN ~Replicates(d) /\ d.del = "none"
-NoTasks(hs) == \A n \in hs : ~Replicates(Decide27(n, hs, {}, {}))
-n\* a check "replicates" when it hands the replicator a task with at least one candidate node. (With overlapping
-\* rules the code as found keeps calling the replicator with an EMPTY candidate list: a holder remembered from
-\* an earlier rule does not lower the shortage of a later rule - a phantom shortage that copies nothing.)
-Replicates(d) == \E k \in 1..Len(d.tasks) : Len(d.tasks[k].nodes) > 0
-Quiet(hs) == \A n \in hs : LET d == Decide27(n, hs, {}, {}) IN ~Replicates(d) /\ d.del = "none"
-NoTasks(hs) == \A n \in hs : ~Replicates(Decide27(n, hs, {}, {}))
- \* a check "replicates" when it hands the replicator a task with at least one candidate node. (With overlapping
-\* rules the code as found keeps calling the replicator with an EMPTY candidate list: a holder remembered from
-\* an earlier rule does not lower the shortage of a later rule - a phantom shortage that copies nothing.)
-Replicates(d) == \E k \in 1..Len(d.tasks) : Len(d.tasks[k].nodes) > 0
-Quiet(hs) == \A n \in hs : LET d == Decide27(n, hs, {}, {}) IN ~Replicates(d) /\ d.del = "none"
-NoTasks(hs) == \A n \in hs : ~Replicates(Decide27(n, hs, {}, {}))
-<\* a check "replicates" when it hands the replicator a task with at least one candidate node. (With overlapping
-\* rules the code as found keeps calling the replicator with an EMPTY candidate list: a holder remembered from
-\* an earlier rule does not lower the shortage of a later rule - a phantom shortage that copies nothing.)
-Replicates(d) == \E k \in 1..Len(d.tasks) : Len(d.tasks[k].nodes) > 0
-Quiet(hs) == \A n \in hs : LET d == Decide27(n, hs, {}, {}) IN ~Replicates(d) /\ d.del = "none"
-NoTasks(hs) == \A n \in hs : ~Replicates(Decide27(n, hs, {}, {}))
--\* a check "replicates" when it hands the replicator a task with at least one candidate node. (With overlapping
-\* rules the code as found keeps calling the replicator with an EMPTY candidate list: a holder remembered from
-\* an earlier rule does not lower the shortage of a later rule - a phantom shortage that copies nothing.)
-Replicates(d) == \E k \in 1..Len(d.tasks) : Len(d.tasks[k].nodes) > 0
-Quiet(hs) == \A n \in hs : LET d == Decide27(n, hs, {}, {}) IN ~Replicates(d) /\ d.del = "none"
-NoTasks(hs) == \A n \in hs : ~Replicates(Decide27(n, hs, {}, {}))
->\* a check "replicates" when it hands the replicator a task with at least one candidate node. (With overlapping
-\* rules the code as found keeps calling the replicator with an EMPTY candidate list: a holder remembered from
-\* an earlier rule does not lower the shortage of a later rule - a phantom shortage that copies nothing.)
-Replicates(d) == \E k \in 1..Len(d.tasks) : Len(d.tasks[k].nodes) > 0
-Quiet(hs) == \A n \in hs : LET d == Decide27(n, hs, {}, {}) IN ~Replicates(d) /\ d.del = "none"
-NoTasks(hs) == \A n \in hs : ~Replicates(Decide27(n, hs, {}, {}))
- \* a check "replicates" when it hands the replicator a task with at least one candidate node. (With overlapping
-\* rules the code as found keeps calling the replicator with an EMPTY candidate list: a holder remembered from
-\* an earlier rule does not lower the shortage of a later rule - a phantom shortage that copies nothing.)
-Replicates(d) == \E k \in 1..Len(d.tasks) : Len(d.tasks[k].nodes) > 0
-Quiet(hs) == \A n \in hs : LET d == Decide27(n, hs, {}, {}) IN ~Replicates(d) /\ d.del = "none"
-NoTasks(hs) == \A n \in hs : ~Replicates(Decide27(n, hs, {}, {}))
-L\* a check "replicates" when it hands the replicator a task with at least one candidate node. (With overlapping
-\* rules the code as found keeps calling the replicator with an EMPTY candidate list: a holder remembered from
-\* an earlier rule does not lower the shortage of a later rule - a phantom shortage that copies nothing.)
-Replicates(d) == \E k \in 1..Len(d.tasks) : Len(d.tasks[k].nodes) > 0
-Quiet(hs) == \A n \in hs : LET d == Decide27(n, hs, {}, {}) IN ~Replicates(d) /\ d.del = "none"
-NoTasks(hs) == \A n \in hs : ~Replicates(Decide27(n, hs, {}, {}))
-o\* a check "replicates" when it hands the replicator a task with at least one candidate node. (With overlapping
-\* rules the code as found keeps calling the replicator with an EMPTY candidate list: a holder remembered from
-\* an earlier rule does not lower the shortage of a later rule - a phantom shortage that copies nothing.)
-Replicates(d) == \E k \in 1..Len(d.tasks) : Len(d.tasks[k].nodes) > 0
-Quiet(hs) == \A n \in hs : LET d == Decide27(n, hs, {}, {}) IN ~Replicates(d) /\ d.del = "none"
-NoTasks(hs) == \A n \in hs : ~Replicates(Decide27(n, hs, {}, {}))
-c\* a check "replicates" when it hands the replicator a task with at least one candidate node. (With overlapping
-\* rules the code as found keeps calling the replicator with an EMPTY candidate list: a holder remembered from
-\* an earlier rule does not lower the shortage of a later rule - a phantom shortage that copies nothing.)
-Replicates(d) == \E k \in 1..Len(d.tasks) : Len(d.tasks[k].nodes) > 0
-Quiet(hs) == \A n \in hs : LET d == Decide27(n, hs, {}, {}) IN ~Replicates(d) /\ d.del = "none"
-NoTasks(hs) == \A n \in hs : ~Replicates(Decide27(n, hs, {}, {}))
-a\* a check "replicates" when it hands the replicator a task with at least one candidate node. (With overlapping
-\* rules the code as found keeps calling the replicator with an EMPTY candidate list: a holder remembered from
-\* an earlier rule does not lower the shortage of a later rule - a phantom shortage that copies nothing.)
-Replicates(d) == \E k \in 1..Len(d.tasks) : Len(d.tasks[k].nodes) > 0
-Quiet(hs) == \A n \in hs : LET d == Decide27(n, hs, {}, {}) IN ~Replicates(d) /\ d.del = "none"
-NoTasks(hs) == \A n \in hs : ~Replicates(Decide27(n, hs, {}, {}))
-l\* a check "replicates" when it hands the replicator a task with at least one candidate node. (With overlapping
-\* rules the code as found keeps calling the replicator with an EMPTY candidate list: a holder remembered from
-\* an earlier rule does not lower the shortage of a later rule - a phantom shortage that copies nothing.)
-Replicates(d) == \E k \in 1..Len(d.tasks) : Len(d.tasks[k].nodes) > 0
-Quiet(hs) == \A n \in hs : LET d == Decide27(n, hs, {}, {}) IN ~Replicates(d) /\ d.del = "none"
-NoTasks(hs) == \A n \in hs : ~Replicates(Decide27(n, hs, {}, {}))
-
-\* a check "replicates" when it hands the replicator a task with at least one candidate node. (With overlapping
-\* rules the code as found keeps calling the replicator with an EMPTY candidate list: a holder remembered from
-\* an earlier rule does not lower the shortage of a later rule - a phantom shortage that copies nothing.)
-Replicates(d) == \E k \in 1..Len(d.tasks) : Len(d.tasks[k].nodes) > 0
-Quiet(hs) == \A n \in hs : LET d == Decide27(n, hs, {}, {}) IN ~Replicates(d) /\ d.del = "none"
-NoTasks(hs) == \A n \in hs : ~Replicates(Decide27(n, hs, {}, {}))
-S\* a check "replicates" when it hands the replicator a task with at least one candidate node. (With overlapping
-\* rules the code as found keeps calling the replicator with an EMPTY candidate list: a holder remembered from
-\* an earlier rule does not lower the shortage of a later rule - a phantom shortage that copies nothing.)
-Replicates(d) == \E k \in 1..Len(d.tasks) : Len(d.tasks[k].nodes) > 0
-Quiet(hs) == \A n \in hs : LET d == Decide27(n, hs, {}, {}) IN ~Replicates(d) /\ d.del = "none"
-NoTasks(hs) == \A n \in hs : ~Replicates(Decide27(n, hs, {}, {}))
-w\* a check "replicates" when it hands the replicator a task with at least one candidate node. (With overlapping
-\* rules the code as found keeps calling the replicator with an EMPTY candidate list: a holder remembered from
-\* an earlier rule does not lower the shortage of a later rule - a phantom shortage that copies nothing.)
-Replicates(d) == \E k \in 1..Len(d.tasks) : Len(d.tasks[k].nodes) > 0
-Quiet(hs) == \A n \in hs : LET d == Decide27(n, hs, {}, {}) IN ~Replicates(d) /\ d.del = "none"
-NoTasks(hs) == \A n \in hs : ~Replicates(Decide27(n, hs, {}, {}))
-a\* a check "replicates" when it hands the replicator a task with at least one candidate node. (With overlapping
-\* rules the code as found keeps calling the replicator with an EMPTY candidate list: a holder remembered from
-\* an earlier rule does not lower the shortage of a later rule - a phantom shortage that copies nothing.)
-Replicates(d) == \E k \in 1..Len(d.tasks) : Len(d.tasks[k].nodes) > 0
-Quiet(hs) == \A n \in hs : LET d == Decide27(n, hs, {}, {}) IN ~Replicates(d) /\ d.del = "none"
-NoTasks(hs) == \A n \in hs : ~Replicates(Decide27(n, hs, {}, {}))
-p\* a check "replicates" when it hands the replicator a task with at least one candidate node. (With overlapping
-\* rules the code as found keeps calling the replicator with an EMPTY candidate list: a holder remembered from
-\* an earlier rule does not lower the shortage of a later rule - a phantom shortage that copies nothing.)
-Replicates(d) == \E k \in 1..Len(d.tasks) : Len(d.tasks[k].nodes) > 0
-Quiet(hs) == \A n \in hs : LET d == Decide27(n, hs, {}, {}) IN ~Replicates(d) /\ d.del = "none"
-NoTasks(hs) == \A n \in hs : ~Replicates(Decide27(n, hs, {}, {}))
-(\* a check "replicates" when it hands the replicator a task with at least one candidate node. (With overlapping
-\* rules the code as found keeps calling the replicator with an EMPTY candidate list: a holder remembered from
-\* an earlier rule does not lower the shortage of a later rule - a phantom shortage that copies nothing.)
-Replicates(d) == \E k \in 1..Len(d.tasks) : Len(d.tasks[k].nodes) > 0
-Quiet(hs) == \A n \in hs : LET d == Decide27(n, hs, {}, {}) IN ~Replicates(d) /\ d.del = "none"
-NoTasks(hs) == \A n \in hs : ~Replicates(Decide27(n, hs, {}, {}))
-n\* a check "replicates" when it hands the replicator a task with at least one candidate node. (With overlapping
-\* rules the code as found keeps calling the replicator with an EMPTY candidate list: a holder remembered from
-\* an earlier rule does not lower the shortage of a later rule - a phantom shortage that copies nothing.)
-Replicates(d) == \E k \in 1..Len(d.tasks) : Len(d.tasks[k].nodes) > 0
-Quiet(hs) == \A n \in hs : LET d == Decide27(n, hs, {}, {}) IN ~Replicates(d) /\ d.del = "none"
-NoTasks(hs) == \A n \in hs : ~Replicates(Decide27(n, hs, {}, {}))
-,\* a check "replicates" when it hands the replicator a task with at least one candidate node. (With overlapping
-\* rules the code as found keeps calling the replicator with an EMPTY candidate list: a holder remembered from
-\* an earlier rule does not lower the shortage of a later rule - a phantom shortage that copies nothing.)
-Replicates(d) == \E k \in 1..Len(d.tasks) : Len(d.tasks[k].nodes) > 0
-Quiet(hs) == \A n \in hs : LET d == Decide27(n, hs, {}, {}) IN ~Replicates(d) /\ d.del = "none"
-NoTasks(hs) == \A n \in hs : ~Replicates(Decide27(n, hs, {}, {}))
- \* a check "replicates" when it hands the replicator a task with at least one candidate node. (With overlapping
-\* rules the code as found keeps calling the replicator with an EMPTY candidate list: a holder remembered from
-\* an earlier rule does not lower the shortage of a later rule - a phantom shortage that copies nothing.)
-Replicates(d) == \E k \in 1..Len(d.tasks) : Len(d.tasks[k].nodes) > 0
-Quiet(hs) == \A n \in hs : LET d == Decide27(n, hs, {}, {}) IN ~Replicates(d) /\ d.del = "none"
-NoTasks(hs) == \A n \in hs : ~Replicates(Decide27(n, hs, {}, {}))
-x\* a check "replicates" when it hands the replicator a task with at least one candidate node. (With overlapping
-\* rules the code as found keeps calling the replicator with an EMPTY candidate list: a holder remembered from
-\* an earlier rule does not lower the shortage of a later rule - a phantom shortage that copies nothing.)
-Replicates(d) == \E k \in 1..Len(d.tasks) : Len(d.tasks[k].nodes) > 0
-Quiet(hs) == \A n \in hs : LET d == Decide27(n, hs, {}, {}) IN ~Replicates(d) /\ d.del = "none"
-NoTasks(hs) == \A n \in hs : ~Replicates(Decide27(n, hs, {}, {}))
-)\* a check "replicates" when it hands the replicator a task with at least one candidate node. (With overlapping
-\* rules the code as found keeps calling the replicator with an EMPTY candidate list: a holder remembered from
-\* an earlier rule does not lower the shortage of a later rule - a phantom shortage that copies nothing.)
-Replicates(d) == \E k \in 1..Len(d.tasks) : Len(d.tasks[k].nodes) > 0
-Quiet(hs) == \A n \in hs : LET d == Decide27(n, hs, {}, {}) IN ~Replicates(d) /\ d.del = "none"
-NoTasks(hs) == \A n \in hs : ~Replicates(Decide27(n, hs, {}, {}))
- \* a check "replicates" when it hands the replicator a task with at least one candidate node. (With overlapping
-\* rules the code as found keeps calling the replicator with an EMPTY candidate list: a holder remembered from
-\* an earlier rule does not lower the shortage of a later rule - a phantom shortage that copies nothing.)
-Replicates(d) == \E k \in 1..Len(d.tasks) : Len(d.tasks[k].nodes) > 0
-Quiet(hs) == \A n \in hs : LET d == Decide27(n, hs, {}, {}) IN ~Replicates(d) /\ d.del = "none"
-NoTasks(hs) == \A n \in hs : ~Replicates(Decide27(n, hs, {}, {}))
-=\* a check "replicates" when it hands the replicator a task with at least one candidate node. (With overlapping
-\* rules the code as found keeps calling the replicator with an EMPTY candidate list: a holder remembered from
-\* an earlier rule does not lower the shortage of a later rule - a phantom shortage that copies nothing.)
-Replicates(d) == \E k \in 1..Len(d.tasks) : Len(d.tasks[k].nodes) > 0
-Quiet(hs) == \A n \in hs : LET d == Decide27(n, hs, {}, {}) IN ~Replicates(d) /\ d.del = "none"
-NoTasks(hs) == \A n \in hs : ~Replicates(Decide27(n, hs, {}, {}))
-=\* a check "replicates" when it hands the replicator a task with at least one candidate node. (With overlapping
-\* rules the code as found keeps calling the replicator with an EMPTY candidate list: a holder remembered from
-\* an earlier rule does not lower the shortage of a later rule - a phantom shortage that copies nothing.)
-Replicates(d) == \E k \in 1..Len(d.tasks) : Len(d.tasks[k].nodes) > 0
-Quiet(hs) == \A n \in hs : LET d == Decide27(n, hs, {}, {}) IN ~Replicates(d) /\ d.del = "none"
-NoTasks(hs) == \A n \in hs : ~Replicates(Decide27(n, hs, {}, {}))
- \* a check "replicates" when it hands the replicator a task with at least one candidate node. (With overlapping
-\* rules the code as found keeps calling the replicator with an EMPTY candidate list: a holder remembered from
-\* an earlier rule does not lower the shortage of a later rule - a phantom shortage that copies nothing.)
-Replicates(d) == \E k \in 1..Len(d.tasks) : Len(d.tasks[k].nodes) > 0
-Quiet(hs) == \A n \in hs : LET d == Decide27(n, hs, {}, {}) IN ~Replicates(d) /\ d.del = "none"
-NoTasks(hs) == \A n \in hs : ~Replicates(Decide27(n, hs, {}, {}))
-I\* a check "replicates" when it hands the replicator a task with at least one candidate node. (With overlapping
-\* rules the code as found keeps calling the replicator with an EMPTY candidate list: a holder remembered from
-\* an earlier rule does not lower the shortage of a later rule - a phantom shortage that copies nothing.)
-Replicates(d) == \E k \in 1..Len(d.tasks) : Len(d.tasks[k].nodes) > 0
-Quiet(hs) == \A n \in hs : LET d == Decide27(n, hs, {}, {}) IN ~Replicates(d) /\ d.del = "none"
-NoTasks(hs) == \A n \in hs : ~Replicates(Decide27(n, hs, {}, {}))
-F\* a check "replicates" when it hands the replicator a task with at least one candidate node. (With overlapping
-\* rules the code as found keeps calling the replicator with an EMPTY candidate list: a holder remembered from
-\* an earlier rule does not lower the shortage of a later rule - a phantom shortage that copies nothing.)
-Replicates(d) == \E k \in 1..Len(d.tasks) : Len(d.tasks[k].nodes) > 0
-Quiet(hs) == \A n \in hs : LET d == Decide27(n, hs, {}, {}) IN ~Replicates(d) /\ d.del = "none"
-NoTasks(hs) == \A n \in hs : ~Replicates(Decide27(n, hs, {}, {}))
- \* a check "replicates" when it hands the replicator a task with at least one candidate node. (With overlapping
-\* rules the code as found keeps calling the replicator with an EMPTY candidate list: a holder remembered from
-\* an earlier rule does not lower the shortage of a later rule - a phantom shortage that copies nothing.)
-Replicates(d) == \E k \in 1..Len(d.tasks) : Len(d.tasks[k].nodes) > 0
-Quiet(hs) == \A n \in hs : LET d == Decide27(n, hs, {}, {}) IN ~Replicates(d) /\ d.del = "none"
-NoTasks(hs) == \A n \in hs : ~Replicates(Decide27(n, hs, {}, {}))
-x\* a check "replicates" when it hands the replicator a task with at least one candidate node. (With overlapping
-\* rules the code as found keeps calling the replicator with an EMPTY candidate list: a holder remembered from
-\* an earlier rule does not lower the shortage of a later rule - a phantom shortage that copies nothing.)
-Replicates(d) == \E k \in 1..Len(d.tasks) : Len(d.tasks[k].nodes) > 0
-Quiet(hs) == \A n \in hs : LET d == Decide27(n, hs, {}, {}) IN ~Replicates(d) /\ d.del = "none"
-NoTasks(hs) == \A n \in hs : ~Replicates(Decide27(n, hs, {}, {}))
- \* a check "replicates" when it hands the replicator a task with at least one candidate node. (With overlapping
-\* rules the code as found keeps calling the replicator with an EMPTY candidate list: a holder remembered from
-\* an earlier rule does not lower the shortage of a later rule - a phantom shortage that copies nothing.)
-Replicates(d) == \E k \in 1..Len(d.tasks) : Len(d.tasks[k].nodes) > 0
-Quiet(hs) == \A n \in hs : LET d == Decide27(n, hs, {}, {}) IN ~Replicates(d) /\ d.del = "none"
-NoTasks(hs) == \A n \in hs : ~Replicates(Decide27(n, hs, {}, {}))
-=\* a check "replicates" when it hands the replicator a task with at least one candidate node. (With overlapping
-\* rules the code as found keeps calling the replicator with an EMPTY candidate list: a holder remembered from
-\* an earlier rule does not lower the shortage of a later rule - a phantom shortage that copies nothing.)
-Replicates(d) == \E k \in 1..Len(d.tasks) : Len(d.tasks[k].nodes) > 0
-Quiet(hs) == \A n \in hs : LET d == Decide27(n, hs, {}, {}) IN ~Replicates(d) /\ d.del = "none"
-NoTasks(hs) == \A n \in hs : ~Replicates(Decide27(n, hs, {}, {}))
- \* a check "replicates" when it hands the replicator a task with at least one candidate node. (With overlapping
-\* rules the code as found keeps calling the replicator with an EMPTY candidate list: a holder remembered from
-\* an earlier rule does not lower the shortage of a later rule - a phantom shortage that copies nothing.)
-Replicates(d) == \E k \in 1..Len(d.tasks) : Len(d.tasks[k].nodes) > 0
-Quiet(hs) == \A n \in hs : LET d == Decide27(n, hs, {}, {}) IN ~Replicates(d) /\ d.del = "none"
-NoTasks(hs) == \A n \in hs : ~Replicates(Decide27(n, hs, {}, {}))
-n\* a check "replicates" when it hands the replicator a task with at least one candidate node. (With overlapping
-\* rules the code as found keeps calling the replicator with an EMPTY candidate list: a holder remembered from
-\* an earlier rule does not lower the shortage of a later rule - a phantom shortage that copies nothing.)
-Replicates(d) == \E k \in 1..Len(d.tasks) : Len(d.tasks[k].nodes) > 0
-Quiet(hs) == \A n \in hs : LET d == Decide27(n, hs, {}, {}) IN ~Replicates(d) /\ d.del = "none"
-NoTasks(hs) == \A n \in hs : ~Replicates(Decide27(n, hs, {}, {}))
- \* a check "replicates" when it hands the replicator a task with at least one candidate node. (With overlapping
-\* rules the code as found keeps calling the replicator with an EMPTY candidate list: a holder remembered from
-\* an earlier rule does not lower the shortage of a later rule - a phantom shortage that copies nothing.)
-Replicates(d) == \E k \in 1..Len(d.tasks) : Len(d.tasks[k].nodes) > 0
-Quiet(hs) == \A n \in hs : LET d == Decide27(n, hs, {}, {}) IN ~Replicates(d) /\ d.del = "none"
-NoTasks(hs) == \A n \in hs : ~Replicates(Decide27(n, hs, {}, {}))
-T\* a check "replicates" when it hands the replicator a task with at least one candidate node. (With overlapping
-\* rules the code as found keeps calling the replicator with an EMPTY candidate list: a holder remembered from
-\* an earlier rule does not lower the shortage of a later rule - a phantom shortage that copies nothing.)
-Replicates(d) == \E k \in 1..Len(d.tasks) : Len(d.tasks[k].nodes) > 0
-Quiet(hs) == \A n \in hs : LET d == Decide27(n, hs, {}, {}) IN ~Replicates(d) /\ d.del = "none"
-NoTasks(hs) == \A n \in hs : ~Replicates(Decide27(n, hs, {}, {}))
-H\* a check "replicates" when it hands the replicator a task with at least one candidate node. (With overlapping
-\* rules the code as found keeps calling the replicator with an EMPTY candidate list: a holder remembered from
-\* an earlier rule does not lower the shortage of a later rule - a phantom shortage that copies nothing.)
-Replicates(d) == \E k \in 1..Len(d.tasks) : Len(d.tasks[k].nodes) > 0
-Quiet(hs) == \A n \in hs : LET d == Decide27(n, hs, {}, {}) IN ~Replicates(d) /\ d.del = "none"
-NoTasks(hs) == \A n \in hs : ~Replicates(Decide27(n, hs, {}, {}))
-E\* a check "replicates" when it hands the replicator a task with at least one candidate node. (With overlapping
-\* rules the code as found keeps calling the replicator with an EMPTY candidate list: a holder remembered from
-\* an earlier rule does not lower the shortage of a later rule - a phantom shortage that copies nothing.)
-Replicates(d) == \E k \in 1..Len(d.tasks) : Len(d.tasks[k].nodes) > 0
-Quiet(hs) == \A n \in hs : LET d == Decide27(n, hs, {}, {}) IN ~Replicates(d) /\ d.del = "none"
-NoTasks(hs) == \A n \in hs : ~Replicates(Decide27(n, hs, {}, {}))
-N\* a check "replicates" when it hands the replicator a task with at least one candidate node. (With overlapping
-\* rules the code as found keeps calling the replicator with an EMPTY candidate list: a holder remembered from
-\* an earlier rule does not lower the shortage of a later rule - a phantom shortage that copies nothing.)
-Replicates(d) == \E k \in 1..Len(d.tasks) : Len(d.tasks[k].nodes) > 0
-Quiet(hs) == \A n \in hs : LET d == Decide27(n, hs, {}, {}) IN ~Replicates(d) /\ d.del = "none"
-NoTasks(hs) == \A n \in hs : ~Replicates(Decide27(n, hs, {}, {}))
- \* a check "replicates" when it hands the replicator a task with at least one candidate node. (With overlapping
-\* rules the code as found keeps calling the replicator with an EMPTY candidate list: a holder remembered from
-\* an earlier rule does not lower the shortage of a later rule - a phantom shortage that copies nothing.)
-Replicates(d) == \E k \in 1..Len(d.tasks) : Len(d.tasks[k].nodes) > 0
-Quiet(hs) == \A n \in hs : LET d == Decide27(n, hs, {}, {}) IN ~Replicates(d) /\ d.del = "none"
-NoTasks(hs) == \A n \in hs : ~Replicates(Decide27(n, hs, {}, {}))
-L\* a check "replicates" when it hands the replicator a task with at least one candidate node. (With overlapping
-\* rules the code as found keeps calling the replicator with an EMPTY candidate list: a holder remembered from
-\* an earlier rule does not lower the shortage of a later rule - a phantom shortage that copies nothing.)
-Replicates(d) == \E k \in 1..Len(d.tasks) : Len(d.tasks[k].nodes) > 0
-Quiet(hs) == \A n \in hs : LET d == Decide27(n, hs, {}, {}) IN ~Replicates(d) /\ d.del = "none"
-NoTasks(hs) == \A n \in hs : ~Replicates(Decide27(n, hs, {}, {}))
-o\* a check "replicates" when it hands the replicator a task with at least one candidate node. (With overlapping
-\* rules the code as found keeps calling the replicator with an EMPTY candidate list: a holder remembered from
-\* an earlier rule does not lower the shortage of a later rule - a phantom shortage that copies nothing.)
-Replicates(d) == \E k \in 1..Len(d.tasks) : Len(d.tasks[k].nodes) > 0
-Quiet(hs) == \A n \in hs : LET d == Decide27(n, hs, {}, {}) IN ~Replicates(d) /\ d.del = "none"
-NoTasks(hs) == \A n \in hs : ~Replicates(Decide27(n, hs, {}, {}))
-c\* a check "replicates" when it hands the replicator a task with at least one candidate node. (With overlapping
-\* rules the code as found keeps calling the replicator with an EMPTY candidate list: a holder remembered from
-\* an earlier rule does not lower the shortage of a later rule - a phantom shortage that copies nothing.)
-Replicates(d) == \E k \in 1..Len(d.tasks) : Len(d.tasks[k].nodes) > 0
-Quiet(hs) == \A n \in hs : LET d == Decide27(n, hs, {}, {}) IN ~Replicates(d) /\ d.del = "none"
-NoTasks(hs) == \A n \in hs : ~Replicates(Decide27(n, hs, {}, {}))
-a\* a check "replicates" when it hands the replicator a task with at least one candidate node. (With overlapping
-\* rules the code as found keeps calling the replicator with an EMPTY candidate list: a holder remembered from
-\* an earlier rule does not lower the shortage of a later rule - a phantom shortage that copies nothing.)
-Replicates(d) == \E k \in 1..Len(d.tasks) : Len(d.tasks[k].nodes) > 0
-Quiet(hs) == \A n \in hs : LET d == Decide27(n, hs, {}, {}) IN ~Replicates(d) /\ d.del = "none"
-NoTasks(hs) == \A n \in hs : ~Replicates(Decide27(n, hs, {}, {}))
-l\* a check "replicates" when it hands the replicator a task with at least one candidate node. (With overlapping
-\* rules the code as found keeps calling the replicator with an EMPTY candidate list: a holder remembered from
-\* an earlier rule does not lower the shortage of a later rule - a phantom shortage that copies nothing.)
-Replicates(d) == \E k \in 1..Len(d.tasks) : Len(d.tasks[k].nodes) > 0
-Quiet(hs) == \A n \in hs : LET d == Decide27(n, hs, {}, {}) IN ~Replicates(d) /\ d.del = "none"
-NoTasks(hs) == \A n \in hs : ~Replicates(Decide27(n, hs, {}, {}))
- \* a check "replicates" when it hands the replicator a task with at least one candidate node. (With overlapping
-\* rules the code as found keeps calling the replicator with an EMPTY candidate list: a holder remembered from
-\* an earlier rule does not lower the shortage of a later rule - a phantom shortage that copies nothing.)
-Replicates(d) == \E k \in 1..Len(d.tasks) : Len(d.tasks[k].nodes) > 0
-Quiet(hs) == \A n \in hs : LET d == Decide27(n, hs, {}, {}) IN ~Replicates(d) /\ d.del = "none"
-NoTasks(hs) == \A n \in hs : ~Replicates(Decide27(n, hs, {}, {}))
-E\* a check "replicates" when it hands the replicator a task with at least one candidate node. (With overlapping
-\* rules the code as found keeps calling the replicator with an EMPTY candidate list: a holder remembered from
-\* an earlier rule does not lower the shortage of a later rule - a phantom shortage that copies nothing.)
-Replicates(d) == \E k \in 1..Len(d.tasks) : Len(d.tasks[k].nodes) > 0
-Quiet(hs) == \A n \in hs : LET d == Decide27(n, hs, {}, {}) IN ~Replicates(d) /\ d.del = "none"
-NoTasks(hs) == \A n \in hs : ~Replicates(Decide27(n, hs, {}, {}))
-L\* a check "replicates" when it hands the replicator a task with at least one candidate node. (With overlapping
-\* rules the code as found keeps calling the replicator with an EMPTY candidate list: a holder remembered from
-\* an earlier rule does not lower the shortage of a later rule - a phantom shortage that copies nothing.)
-Replicates(d) == \E k \in 1..Len(d.tasks) : Len(d.tasks[k].nodes) > 0
-Quiet(hs) == \A n \in hs : LET d == Decide27(n, hs, {}, {}) IN ~Replicates(d) /\ d.del = "none"
-NoTasks(hs) == \A n \in hs : ~Replicates(Decide27(n, hs, {}, {}))
-S\* a check "replicates" when it hands the replicator a task with at least one candidate node. (With overlapping
-\* rules the code as found keeps calling the replicator with an EMPTY candidate list: a holder remembered from
-\* an earlier rule does not lower the shortage of a later rule - a phantom shortage that copies nothing.)
-Replicates(d) == \E k \in 1..Len(d.tasks) : Len(d.tasks[k].nodes) > 0
-Quiet(hs) == \A n \in hs : LET d == Decide27(n, hs, {}, {}) IN ~Replicates(d) /\ d.del = "none"
-NoTasks(hs) == \A n \in hs : ~Replicates(Decide27(n, hs, {}, {}))
-E\* a check "replicates" when it hands the replicator a task with at least one candidate node. (With overlapping
-\* rules the code as found keeps calling the replicator with an EMPTY candidate list: a holder remembered from
-\* an earlier rule does not lower the shortage of a later rule - a phantom shortage that copies nothing.)
-Replicates(d) == \E k \in 1..Len(d.tasks) : Len(d.tasks[k].nodes) > 0
-Quiet(hs) == \A n \in hs : LET d == Decide27(n, hs, {}, {}) IN ~Replicates(d) /\ d.del = "none"
-NoTasks(hs) == \A n \in hs : ~Replicates(Decide27(n, hs, {}, {}))
- \* a check "replicates" when it hands the replicator a task with at least one candidate node. (With overlapping
-\* rules the code as found keeps calling the replicator with an EMPTY candidate list: a holder remembered from
-\* an earlier rule does not lower the shortage of a later rule - a phantom shortage that copies nothing.)
-Replicates(d) == \E k \in 1..Len(d.tasks) : Len(d.tasks[k].nodes) > 0
-Quiet(hs) == \A n \in hs : LET d == Decide27(n, hs, {}, {}) IN ~Replicates(d) /\ d.del = "none"
-NoTasks(hs) == \A n \in hs : ~Replicates(Decide27(n, hs, {}, {}))
-I\* a check "replicates" when it hands the replicator a task with at least one candidate node. (With overlapping
-\* rules the code as found keeps calling the replicator with an EMPTY candidate list: a holder remembered from
-\* an earlier rule does not lower the shortage of a later rule - a phantom shortage that copies nothing.)
-Replicates(d) == \E k \in 1..Len(d.tasks) : Len(d.tasks[k].nodes) > 0
-Quiet(hs) == \A n \in hs : LET d == Decide27(n, hs, {}, {}) IN ~Replicates(d) /\ d.del = "none"
-NoTasks(hs) == \A n \in hs : ~Replicates(Decide27(n, hs, {}, {}))
-F\* a check "replicates" when it hands the replicator a task with at least one candidate node. (With overlapping
-\* rules the code as found keeps calling the replicator with an EMPTY candidate list: a holder remembered from
-\* an earlier rule does not lower the shortage of a later rule - a phantom shortage that copies nothing.)
-Replicates(d) == \E k \in 1..Len(d.tasks) : Len(d.tasks[k].nodes) > 0
-Quiet(hs) == \A n \in hs : LET d == Decide27(n, hs, {}, {}) IN ~Replicates(d) /\ d.del = "none"
-NoTasks(hs) == \A n \in hs : ~Replicates(Decide27(n, hs, {}, {}))
- \* a check "replicates" when it hands the replicator a task with at least one candidate node. (With overlapping
-\* rules the code as found keeps calling the replicator with an EMPTY candidate list: a holder remembered from
-\* an earlier rule does not lower the shortage of a later rule - a phantom shortage that copies nothing.)
-Replicates(d) == \E k \in 1..Len(d.tasks) : Len(d.tasks[k].nodes) > 0
-Quiet(hs) == \A n \in hs : LET d == Decide27(n, hs, {}, {}) IN ~Replicates(d) /\ d.del = "none"
-NoTasks(hs) == \A n \in hs : ~Replicates(Decide27(n, hs, {}, {}))
-x\* a check "replicates" when it hands the replicator a task with at least one candidate node. (With overlapping
-\* rules the code as found keeps calling the replicator with an EMPTY candidate list: a holder remembered from
-\* an earlier rule does not lower the shortage of a later rule - a phantom shortage that copies nothing.)
-Replicates(d) == \E k \in 1..Len(d.tasks) : Len(d.tasks[k].nodes) > 0
-Quiet(hs) == \A n \in hs : LET d == Decide27(n, hs, {}, {}) IN ~Replicates(d) /\ d.del = "none"
-NoTasks(hs) == \A n \in hs : ~Replicates(Decide27(n, hs, {}, {}))
- \* a check "replicates" when it hands the replicator a task with at least one candidate node. (With overlapping
-\* rules the code as found keeps calling the replicator with an EMPTY candidate list: a holder remembered from
-\* an earlier rule does not lower the shortage of a later rule - a phantom shortage that copies nothing.)
-Replicates(d) == \E k \in 1..Len(d.tasks) : Len(d.tasks[k].nodes) > 0
-Quiet(hs) == \A n \in hs : LET d == Decide27(n, hs, {}, {}) IN ~Replicates(d) /\ d.del = "none"
-NoTasks(hs) == \A n \in hs : ~Replicates(Decide27(n, hs, {}, {}))
-=\* a check "replicates" when it hands the replicator a task with at least one candidate node. (With overlapping
-\* rules the code as found keeps calling the replicator with an EMPTY candidate list: a holder remembered from
-\* an earlier rule does not lower the shortage of a later rule - a phantom shortage that copies nothing.)
-Replicates(d) == \E k \in 1..Len(d.tasks) : Len(d.tasks[k].nodes) > 0
-Quiet(hs) == \A n \in hs : LET d == Decide27(n, hs, {}, {}) IN ~Replicates(d) /\ d.del = "none"
-NoTasks(hs) == \A n \in hs : ~Replicates(Decide27(n, hs, {}, {}))
- \* a check "replicates" when it hands the replicator a task with at least one candidate node. (With overlapping
-\* rules the code as found keeps calling the replicator with an EMPTY candidate list: a holder remembered from
-\* an earlier rule does not lower the shortage of a later rule - a phantom shortage that copies nothing.)
-Replicates(d) == \E k \in 1..Len(d.tasks) : Len(d.tasks[k].nodes) > 0
-Quiet(hs) == \A n \in hs : LET d == Decide27(n, hs, {}, {}) IN ~Replicates(d) /\ d.del = "none"
-NoTasks(hs) == \A n \in hs : ~Replicates(Decide27(n, hs, {}, {}))
-L\* a check "replicates" when it hands the replicator a task with at least one candidate node. (With overlapping
-\* rules the code as found keeps calling the replicator with an EMPTY candidate list: a holder remembered from
-\* an earlier rule does not lower the shortage of a later rule - a phantom shortage that copies nothing.)
-Replicates(d) == \E k \in 1..Len(d.tasks) : Len(d.tasks[k].nodes) > 0
-Quiet(hs) == \A n \in hs : LET d == Decide27(n, hs, {}, {}) IN ~Replicates(d) /\ d.del = "none"
-NoTasks(hs) == \A n \in hs : ~Replicates(Decide27(n, hs, {}, {}))
-o\* a check "replicates" when it hands the replicator a task with at least one candidate node. (With overlapping
-\* rules the code as found keeps calling the replicator with an EMPTY candidate list: a holder remembered from
-\* an earlier rule does not lower the shortage of a later rule - a phantom shortage that copies nothing.)
-Replicates(d) == \E k \in 1..Len(d.tasks) : Len(d.tasks[k].nodes) > 0
-Quiet(hs) == \A n \in hs : LET d == Decide27(n, hs, {}, {}) IN ~Replicates(d) /\ d.del = "none"
-NoTasks(hs) == \A n \in hs : ~Replicates(Decide27(n, hs, {}, {}))
-c\* a check "replicates" when it hands the replicator a task with at least one candidate node. (With overlapping
-\* rules the code as found keeps calling the replicator with an EMPTY candidate list: a holder remembered from
-\* an earlier rule does not lower the shortage of a later rule - a phantom shortage that copies nothing.)
-Replicates(d) == \E k \in 1..Len(d.tasks) : Len(d.tasks[k].nodes) > 0
-Quiet(hs) == \A n \in hs : LET d == Decide27(n, hs, {}, {}) IN ~Replicates(d) /\ d.del = "none"
-NoTasks(hs) == \A n \in hs : ~Replicates(Decide27(n, hs, {}, {}))
-a\* a check "replicates" when it hands the replicator a task with at least one candidate node. (With overlapping
-\* rules the code as found keeps calling the replicator with an EMPTY candidate list: a holder remembered from
-\* an earlier rule does not lower the shortage of a later rule - a phantom shortage that copies nothing.)
-Replicates(d) == \E k \in 1..Len(d.tasks) : Len(d.tasks[k].nodes) > 0
-Quiet(hs) == \A n \in hs : LET d == Decide27(n, hs, {}, {}) IN ~Replicates(d) /\ d.del = "none"
-NoTasks(hs) == \A n \in hs : ~Replicates(Decide27(n, hs, {}, {}))
-l\* a check "replicates" when it hands the replicator a task with at least one candidate node. (With overlapping
-\* rules the code as found keeps calling the replicator with an EMPTY candidate list: a holder remembered from
-\* an earlier rule does not lower the shortage of a later rule - a phantom shortage that copies nothing.)
-Replicates(d) == \E k \in 1..Len(d.tasks) : Len(d.tasks[k].nodes) > 0
-Quiet(hs) == \A n \in hs : LET d == Decide27(n, hs, {}, {}) IN ~Replicates(d) /\ d.del = "none"
-NoTasks(hs) == \A n \in hs : ~Replicates(Decide27(n, hs, {}, {}))
- \* a check "replicates" when it hands the replicator a task with at least one candidate node. (With overlapping
-\* rules the code as found keeps calling the replicator with an EMPTY candidate list: a holder remembered from
-\* an earlier rule does not lower the shortage of a later rule - a phantom shortage that copies nothing.)
-Replicates(d) == \E k \in 1..Len(d.tasks) : Len(d.tasks[k].nodes) > 0
-Quiet(hs) == \A n \in hs : LET d == Decide27(n, hs, {}, {}) IN ~Replicates(d) /\ d.del = "none"
-NoTasks(hs) == \A n \in hs : ~Replicates(Decide27(n, hs, {}, {}))
-T\* a check "replicates" when it hands the replicator a task with at least one candidate node. (With overlapping
-\* rules the code as found keeps calling the replicator with an EMPTY candidate list: a holder remembered from
-\* an earlier rule does not lower the shortage of a later rule - a phantom shortage that copies nothing.)
-Replicates(d) == \E k \in 1..Len(d.tasks) : Len(d.tasks[k].nodes) > 0
-Quiet(hs) == \A n \in hs : LET d == Decide27(n, hs, {}, {}) IN ~Replicates(d) /\ d.del = "none"
-NoTasks(hs) == \A n \in hs : ~Replicates(Decide27(n, hs, {}, {}))
-H\* a check "replicates" when it hands the replicator a task with at least one candidate node. (With overlapping
-\* rules the code as found keeps calling the replicator with an EMPTY candidate list: a holder remembered from
-\* an earlier rule does not lower the shortage of a later rule - a phantom shortage that copies nothing.)
-Replicates(d) == \E k \in 1..Len(d.tasks) : Len(d.tasks[k].nodes) > 0
-Quiet(hs) == \A n \in hs : LET d == Decide27(n, hs, {}, {}) IN ~Replicates(d) /\ d.del = "none"
-NoTasks(hs) == \A n \in hs : ~Replicates(Decide27(n, hs, {}, {}))
-E\* a check "replicates" when it hands the replicator a task with at least one candidate node. (With overlapping
-\* rules the code as found keeps calling the replicator with an EMPTY candidate list: a holder remembered from
-\* an earlier rule does not lower the shortage of a later rule - a phantom shortage that copies nothing.)
-Replicates(d) == \E k \in 1..Len(d.tasks) : Len(d.tasks[k].nodes) > 0
-Quiet(hs) == \A n \in hs : LET d == Decide27(n, hs, {}, {}) IN ~Replicates(d) /\ d.del = "none"
-NoTasks(hs) == \A n \in hs : ~Replicates(Decide27(n, hs, {}, {}))
-N\* a check "replicates" when it hands the replicator a task with at least one candidate node. (With overlapping
-\* rules the code as found keeps calling the replicator with an EMPTY candidate list: a holder remembered from
-\* an earlier rule does not lower the shortage of a later rule - a phantom shortage that copies nothing.)
-Replicates(d) == \E k \in 1..Len(d.tasks) : Len(d.tasks[k].nodes) > 0
-Quiet(hs) == \A n \in hs : LET d == Decide27(n, hs, {}, {}) IN ~Replicates(d) /\ d.del = "none"
-NoTasks(hs) == \A n \in hs : ~Replicates(Decide27(n, hs, {}, {}))
- \* a check "replicates" when it hands the replicator a task with at least one candidate node. (With overlapping
-\* rules the code as found keeps calling the replicator with an EMPTY candidate list: a holder remembered from
-\* an earlier rule does not lower the shortage of a later rule - a phantom shortage that copies nothing.)
-Replicates(d) == \E k \in 1..Len(d.tasks) : Len(d.tasks[k].nodes) > 0
-Quiet(hs) == \A n \in hs : LET d == Decide27(n, hs, {}, {}) IN ~Replicates(d) /\ d.del = "none"
-NoTasks(hs) == \A n \in hs : ~Replicates(Decide27(n, hs, {}, {}))
-n\* a check "replicates" when it hands the replicator a task with at least one candidate node. (With overlapping
-\* rules the code as found keeps calling the replicator with an EMPTY candidate list: a holder remembered from
-\* an earlier rule does not lower the shortage of a later rule - a phantom shortage that copies nothing.)
-Replicates(d) == \E k \in 1..Len(d.tasks) : Len(d.tasks[k].nodes) > 0
-Quiet(hs) == \A n \in hs : LET d == Decide27(n, hs, {}, {}) IN ~Replicates(d) /\ d.del = "none"
-NoTasks(hs) == \A n \in hs : ~Replicates(Decide27(n, hs, {}, {}))
- \* a check "replicates" when it hands the replicator a task with at least one candidate node. (With overlapping
-\* rules the code as found keeps calling the replicator with an EMPTY candidate list: a holder remembered from
-\* an earlier rule does not lower the shortage of a later rule - a phantom shortage that copies nothing.)
-Replicates(d) == \E k \in 1..Len(d.tasks) : Len(d.tasks[k].nodes) > 0
-Quiet(hs) == \A n \in hs : LET d == Decide27(n, hs, {}, {}) IN ~Replicates(d) /\ d.del = "none"
-NoTasks(hs) == \A n \in hs : ~Replicates(Decide27(n, hs, {}, {}))
-E\* a check "replicates" when it hands the replicator a task with at least one candidate node. (With overlapping
-\* rules the code as found keeps calling the replicator with an EMPTY candidate list: a holder remembered from
-\* an earlier rule does not lower the shortage of a later rule - a phantom shortage that copies nothing.)
-Replicates(d) == \E k \in 1..Len(d.tasks) : Len(d.tasks[k].nodes) > 0
-Quiet(hs) == \A n \in hs : LET d == Decide27(n, hs, {}, {}) IN ~Replicates(d) /\ d.del = "none"
-NoTasks(hs) == \A n \in hs : ~Replicates(Decide27(n, hs, {}, {}))
-L\* a check "replicates" when it hands the replicator a task with at least one candidate node. (With overlapping
-\* rules the code as found keeps calling the replicator with an EMPTY candidate list: a holder remembered from
-\* an earlier rule does not lower the shortage of a later rule - a phantom shortage that copies nothing.)
-Replicates(d) == \E k \in 1..Len(d.tasks) : Len(d.tasks[k].nodes) > 0
-Quiet(hs) == \A n \in hs : LET d == Decide27(n, hs, {}, {}) IN ~Replicates(d) /\ d.del = "none"
-NoTasks(hs) == \A n \in hs : ~Replicates(Decide27(n, hs, {}, {}))
-S\* a check "replicates" when it hands the replicator a task with at least one candidate node. (With overlapping
-\* rules the code as found keeps calling the replicator with an EMPTY candidate list: a holder remembered from
-\* an earlier rule does not lower the shortage of a later rule - a phantom shortage that copies nothing.)
-Replicates(d) == \E k \in 1..Len(d.tasks) : Len(d.tasks[k].nodes) > 0
-Quiet(hs) == \A n \in hs : LET d == Decide27(n, hs, {}, {}) IN ~Replicates(d) /\ d.del = "none"
-NoTasks(hs) == \A n \in hs : ~Replicates(Decide27(n, hs, {}, {}))
-E\* a check "replicates" when it hands the replicator a task with at least one candidate node. (With overlapping
-\* rules the code as found keeps calling the replicator with an EMPTY candidate list: a holder remembered from
-\* an earlier rule does not lower the shortage of a later rule - a phantom shortage that copies nothing.)
-Replicates(d) == \E k \in 1..Len(d.tasks) : Len(d.tasks[k].nodes) > 0
-Quiet(hs) == \A n \in hs : LET d == Decide27(n, hs, {}, {}) IN ~Replicates(d) /\ d.del = "none"
-NoTasks(hs) == \A n \in hs : ~Replicates(Decide27(n, hs, {}, {}))
- \* a check "replicates" when it hands the replicator a task with at least one candidate node. (With overlapping
-\* rules the code as found keeps calling the replicator with an EMPTY candidate list: a holder remembered from
-\* an earlier rule does not lower the shortage of a later rule - a phantom shortage that copies nothing.)
-Replicates(d) == \E k \in 1..Len(d.tasks) : Len(d.tasks[k].nodes) > 0
-Quiet(hs) == \A n \in hs : LET d == Decide27(n, hs, {}, {}) IN ~Replicates(d) /\ d.del = "none"
-NoTasks(hs) == \A n \in hs : ~Replicates(Decide27(n, hs, {}, {}))
-x\* a check "replicates" when it hands the replicator a task with at least one candidate node. (With overlapping
-\* rules the code as found keeps calling the replicator with an EMPTY candidate list: a holder remembered from
-\* an earlier rule does not lower the shortage of a later rule - a phantom shortage that copies nothing.)
-Replicates(d) == \E k \in 1..Len(d.tasks) : Len(d.tasks[k].nodes) > 0
-Quiet(hs) == \A n \in hs : LET d == Decide27(n, hs, {}, {}) IN ~Replicates(d) /\ d.del = "none"
-NoTasks(hs) == \A n \in hs : ~Replicates(Decide27(n, hs, {}, {}))
-
-\* a check "replicates" when it hands the replicator a task with at least one candidate node. (With overlapping
-\* rules the code as found keeps calling the replicator with an EMPTY candidate list: a holder remembered from
-\* an earlier rule does not lower the shortage of a later rule - a phantom shortage that copies nothing.)
-Replicates(d) == \E k \in 1..Len(d.tasks) : Len(d.tasks[k].nodes) > 0
-Quiet(hs) == \A n \in hs : LET d == Decide27(n, hs, {}, {}) IN ~Replicates(d) /\ d.del = "none"
-NoTasks(hs) == \A n \in hs : ~Replicates(Decide27(n, hs, {}, {}))
-
-\* a check "replicates" when it hands the replicator a task with at least one candidate node. (With overlapping
-\* rules the code as found keeps calling the replicator with an EMPTY candidate list: a holder remembered from
-\* an earlier rule does not lower the shortage of a later rule - a phantom shortage that copies nothing.)
-Replicates(d) == \E k \in 1..Len(d.tasks) : Len(d.tasks[k].nodes) > 0
-Quiet(hs) == \A n \in hs : LET d == Decide27(n, hs, {}, {}) IN ~Replicates(d) /\ d.del = "none"
-NoTasks(hs) == \A n \in hs : ~Replicates(Decide27(n, hs, {}, {}))
-V\* a check "replicates" when it hands the replicator a task with at least one candidate node. (With overlapping
-\* rules the code as found keeps calling the replicator with an EMPTY candidate list: a holder remembered from
-\* an earlier rule does not lower the shortage of a later rule - a phantom shortage that copies nothing.)
-Replicates(d) == \E k \in 1..Len(d.tasks) : Len(d.tasks[k].nodes) > 0
-Quiet(hs) == \A n \in hs : LET d == Decide27(n, hs, {}, {}) IN ~Replicates(d) /\ d.del = "none"
-NoTasks(hs) == \A n \in hs : ~Replicates(Decide27(n, hs, {}, {}))
-A\* a check "replicates" when it hands the replicator a task with at least one candidate node. (With overlapping
-\* rules the code as found keeps calling the replicator with an EMPTY candidate list: a holder remembered from
-\* an earlier rule does not lower the shortage of a later rule - a phantom shortage that copies nothing.)
-Replicates(d) == \E k \in 1..Len(d.tasks) : Len(d.tasks[k].nodes) > 0
-Quiet(hs) == \A n \in hs : LET d == Decide27(n, hs, {}, {}) IN ~Replicates(d) /\ d.del = "none"
-NoTasks(hs) == \A n \in hs : ~Replicates(Decide27(n, hs, {}, {}))
-R\* a check "replicates" when it hands the replicator a task with at least one candidate node. (With overlapping
-\* rules the code as found keeps calling the replicator with an EMPTY candidate list: a holder remembered from
-\* an earlier rule does not lower the shortage of a later rule - a phantom shortage that copies nothing.)
-Replicates(d) == \E k \in 1..Len(d.tasks) : Len(d.tasks[k].nodes) > 0
-Quiet(hs) == \A n \in hs : LET d == Decide27(n, hs, {}, {}) IN ~Replicates(d) /\ d.del = "none"
-NoTasks(hs) == \A n \in hs : ~Replicates(Decide27(n, hs, {}, {}))
-I\* a check "replicates" when it hands the replicator a task with at least one candidate node. (With overlapping
-\* rules the code as found keeps calling the replicator with an EMPTY candidate list: a holder remembered from
-\* an earlier rule does not lower the shortage of a later rule - a phantom shortage that copies nothing.)
-Replicates(d) == \E k \in 1..Len(d.tasks) : Len(d.tasks[k].nodes) > 0
-Quiet(hs) == \A n \in hs : LET d == Decide27(n, hs, {}, {}) IN ~Replicates(d) /\ d.del = "none"
-NoTasks(hs) == \A n \in hs : ~Replicates(Decide27(n, hs, {}, {}))
-A\* a check "replicates" when it hands the replicator a task with at least one candidate node. (With overlapping
-\* rules the code as found keeps calling the replicator with an EMPTY candidate list: a holder remembered from
-\* an earlier rule does not lower the shortage of a later rule - a phantom shortage that copies nothing.)
-Replicates(d) == \E k \in 1..Len(d.tasks) : Len(d.tasks[k].nodes) > 0
-Quiet(hs) == \A n \in hs : LET d == Decide27(n, hs, {}, {}) IN ~Replicates(d) /\ d.del = "none"
-NoTasks(hs) == \A n \in hs : ~Replicates(Decide27(n, hs, {}, {}))
-B\* a check "replicates" when it hands the replicator a task with at least one candidate node. (With overlapping
-\* rules the code as found keeps calling the replicator with an EMPTY candidate list: a holder remembered from
-\* an earlier rule does not lower the shortage of a later rule - a phantom shortage that copies nothing.)
-Replicates(d) == \E k \in 1..Len(d.tasks) : Len(d.tasks[k].nodes) > 0
-Quiet(hs) == \A n \in hs : LET d == Decide27(n, hs, {}, {}) IN ~Replicates(d) /\ d.del = "none"
-NoTasks(hs) == \A n \in hs : ~Replicates(Decide27(n, hs, {}, {}))
-L\* a check "replicates" when it hands the replicator a task with at least one candidate node. (With overlapping
-\* rules the code as found keeps calling the replicator with an EMPTY candidate list: a holder remembered from
-\* an earlier rule does not lower the shortage of a later rule - a phantom shortage that copies nothing.)
-Replicates(d) == \E k \in 1..Len(d.tasks) : Len(d.tasks[k].nodes) > 0
-Quiet(hs) == \A n \in hs : LET d == Decide27(n, hs, {}, {}) IN ~Replicates(d) /\ d.del = "none"
-NoTasks(hs) == \A n \in hs : ~Replicates(Decide27(n, hs, {}, {}))
-E\* a check "replicates" when it hands the replicator a task with at least one candidate node. (With overlapping
-\* rules the code as found keeps calling the replicator with an EMPTY candidate list: a holder remembered from
-\* an earlier rule does not lower the shortage of a later rule - a phantom shortage that copies nothing.)
-Replicates(d) == \E k \in 1..Len(d.tasks) : Len(d.tasks[k].nodes) > 0
-Quiet(hs) == \A n \in hs : LET d == Decide27(n, hs, {}, {}) IN ~Replicates(d) /\ d.del = "none"
-NoTasks(hs) == \A n \in hs : ~Replicates(Decide27(n, hs, {}, {}))
-S\* a check "replicates" when it hands the replicator a task with at least one candidate node. (With overlapping
-\* rules the code as found keeps calling the replicator with an EMPTY candidate list: a holder remembered from
-\* an earlier rule does not lower the shortage of a later rule - a phantom shortage that copies nothing.)
-Replicates(d) == \E k \in 1..Len(d.tasks) : Len(d.tasks[k].nodes) > 0
-Quiet(hs) == \A n \in hs : LET d == Decide27(n, hs, {}, {}) IN ~Replicates(d) /\ d.del = "none"
-NoTasks(hs) == \A n \in hs : ~Replicates(Decide27(n, hs, {}, {}))
- \* a check "replicates" when it hands the replicator a task with at least one candidate node. (With overlapping
-\* rules the code as found keeps calling the replicator with an EMPTY candidate list: a holder remembered from
-\* an earlier rule does not lower the shortage of a later rule - a phantom shortage that copies nothing.)
-Replicates(d) == \E k \in 1..Len(d.tasks) : Len(d.tasks[k].nodes) > 0
-Quiet(hs) == \A n \in hs : LET d == Decide27(n, hs, {}, {}) IN ~Replicates(d) /\ d.del = "none"
-NoTasks(hs) == \A n \in hs : ~Replicates(Decide27(n, hs, {}, {}))
-r\* a check "replicates" when it hands the replicator a task with at least one candidate node. (With overlapping
-\* rules the code as found keeps calling the replicator with an EMPTY candidate list: a holder remembered from
-\* an earlier rule does not lower the shortage of a later rule - a phantom shortage that copies nothing.)
-Replicates(d) == \E k \in 1..Len(d.tasks) : Len(d.tasks[k].nodes) > 0
-Quiet(hs) == \A n \in hs : LET d == Decide27(n, hs, {}, {}) IN ~Replicates(d) /\ d.del = "none"
-NoTasks(hs) == \A n \in hs : ~Replicates(Decide27(n, hs, {}, {}))
-u\* a check "replicates" when it hands the replicator a task with at least one candidate node. (With overlapping
-\* rules the code as found keeps calling the replicator with an EMPTY candidate list: a holder remembered from
-\* an earlier rule does not lower the shortage of a later rule - a phantom shortage that copies nothing.)
-Replicates(d) == \E k \in 1..Len(d.tasks) : Len(d.tasks[k].nodes) > 0
-Quiet(hs) == \A n \in hs : LET d == Decide27(n, hs, {}, {}) IN ~Replicates(d) /\ d.del = "none"
-NoTasks(hs) == \A n \in hs : ~Replicates(Decide27(n, hs, {}, {}))
-l\* a check "replicates" when it hands the replicator a task with at least one candidate node. (With overlapping
-\* rules the code as found keeps calling the replicator with an EMPTY candidate list: a holder remembered from
-\* an earlier rule does not lower the shortage of a later rule - a phantom shortage that copies nothing.)
-Replicates(d) == \E k \in 1..Len(d.tasks) : Len(d.tasks[k].nodes) > 0
-Quiet(hs) == \A n \in hs : LET d == Decide27(n, hs, {}, {}) IN ~Replicates(d) /\ d.del = "none"
-NoTasks(hs) == \A n \in hs : ~Replicates(Decide27(n, hs, {}, {}))
-e\* a check "replicates" when it hands the replicator a task with at least one candidate node. (With overlapping
-\* rules the code as found keeps calling the replicator with an EMPTY candidate list: a holder remembered from
-\* an earlier rule does not lower the shortage of a later rule - a phantom shortage that copies nothing.)
-Replicates(d) == \E k \in 1..Len(d.tasks) : Len(d.tasks[k].nodes) > 0
-Quiet(hs) == \A n \in hs : LET d == Decide27(n, hs, {}, {}) IN ~Replicates(d) /\ d.del = "none"
-NoTasks(hs) == \A n \in hs : ~Replicates(Decide27(n, hs, {}, {}))
-s\* a check "replicates" when it hands the replicator a task with at least one candidate node. (With overlapping
-\* rules the code as found keeps calling the replicator with an EMPTY candidate list: a holder remembered from
-\* an earlier rule does not lower the shortage of a later rule - a phantom shortage that copies nothing.)
-Replicates(d) == \E k \in 1..Len(d.tasks) : Len(d.tasks[k].nodes) > 0
-Quiet(hs) == \A n \in hs : LET d == Decide27(n, hs, {}, {}) IN ~Replicates(d) /\ d.del = "none"
-NoTasks(hs) == \A n \in hs : ~Replicates(Decide27(n, hs, {}, {}))
-,\* a check "replicates" when it hands the replicator a task with at least one candidate node. (With overlapping
-\* rules the code as found keeps calling the replicator with an EMPTY candidate list: a holder remembered from
-\* an earlier rule does not lower the shortage of a later rule - a phantom shortage that copies nothing.)
-Replicates(d) == \E k \in 1..Len(d.tasks) : Len(d.tasks[k].nodes) > 0
-Quiet(hs) == \A n \in hs : LET d == Decide27(n, hs, {}, {}) IN ~Replicates(d) /\ d.del = "none"
-NoTasks(hs) == \A n \in hs : ~Replicates(Decide27(n, hs, {}, {}))
- \* a check "replicates" when it hands the replicator a task with at least one candidate node. (With overlapping
-\* rules the code as found keeps calling the replicator with an EMPTY candidate list: a holder remembered from
-\* an earlier rule does not lower the shortage of a later rule - a phantom shortage that copies nothing.)
-Replicates(d) == \E k \in 1..Len(d.tasks) : Len(d.tasks[k].nodes) > 0
-Quiet(hs) == \A n \in hs : LET d == Decide27(n, hs, {}, {}) IN ~Replicates(d) /\ d.del = "none"
-NoTasks(hs) == \A n \in hs : ~Replicates(Decide27(n, hs, {}, {}))
- \* a check "replicates" when it hands the replicator a task with at least one candidate node. (With overlapping
-\* rules the code as found keeps calling the replicator with an EMPTY candidate list: a holder remembered from
-\* an earlier rule does not lower the shortage of a later rule - a phantom shortage that copies nothing.)
-Replicates(d) == \E k \in 1..Len(d.tasks) : Len(d.tasks[k].nodes) > 0
-Quiet(hs) == \A n \in hs : LET d == Decide27(n, hs, {}, {}) IN ~Replicates(d) /\ d.del = "none"
-NoTasks(hs) == \A n \in hs : ~Replicates(Decide27(n, hs, {}, {}))
- \* a check "replicates" when it hands the replicator a task with at least one candidate node. (With overlapping
-\* rules the code as found keeps calling the replicator with an EMPTY candidate list: a holder remembered from
-\* an earlier rule does not lower the shortage of a later rule - a phantom shortage that copies nothing.)
-Replicates(d) == \E k \in 1..Len(d.tasks) : Len(d.tasks[k].nodes) > 0
-Quiet(hs) == \A n \in hs : LET d == Decide27(n, hs, {}, {}) IN ~Replicates(d) /\ d.del = "none"
-NoTasks(hs) == \A n \in hs : ~Replicates(Decide27(n, hs, {}, {}))
- \* a check "replicates" when it hands the replicator a task with at least one candidate node. (With overlapping
-\* rules the code as found keeps calling the replicator with an EMPTY candidate list: a holder remembered from
-\* an earlier rule does not lower the shortage of a later rule - a phantom shortage that copies nothing.)
-Replicates(d) == \E k \in 1..Len(d.tasks) : Len(d.tasks[k].nodes) > 0
-Quiet(hs) == \A n \in hs : LET d == Decide27(n, hs, {}, {}) IN ~Replicates(d) /\ d.del = "none"
-NoTasks(hs) == \A n \in hs : ~Replicates(Decide27(n, hs, {}, {}))
- \* a check "replicates" when it hands the replicator a task with at least one candidate node. (With overlapping
-\* rules the code as found keeps calling the replicator with an EMPTY candidate list: a holder remembered from
-\* an earlier rule does not lower the shortage of a later rule - a phantom shortage that copies nothing.)
-Replicates(d) == \E k \in 1..Len(d.tasks) : Len(d.tasks[k].nodes) > 0
-Quiet(hs) == \A n \in hs : LET d == Decide27(n, hs, {}, {}) IN ~Replicates(d) /\ d.del = "none"
-NoTasks(hs) == \A n \in hs : ~Replicates(Decide27(n, hs, {}, {}))
- \* a check "replicates" when it hands the replicator a task with at least one candidate node. (With overlapping
-\* rules the code as found keeps calling the replicator with an EMPTY candidate list: a holder remembered from
-\* an earlier rule does not lower the shortage of a later rule - a phantom shortage that copies nothing.)
-Replicates(d) == \E k \in 1..Len(d.tasks) : Len(d.tasks[k].nodes) > 0
-Quiet(hs) == \A n \in hs : LET d == Decide27(n, hs, {}, {}) IN ~Replicates(d) /\ d.del = "none"
-NoTasks(hs) == \A n \in hs : ~Replicates(Decide27(n, hs, {}, {}))
- \* a check "replicates" when it hands the replicator a task with at least one candidate node. (With overlapping
-\* rules the code as found keeps calling the replicator with an EMPTY candidate list: a holder remembered from
-\* an earlier rule does not lower the shortage of a later rule - a phantom shortage that copies nothing.)
-Replicates(d) == \E k \in 1..Len(d.tasks) : Len(d.tasks[k].nodes) > 0
-Quiet(hs) == \A n \in hs : LET d == Decide27(n, hs, {}, {}) IN ~Replicates(d) /\ d.del = "none"
-NoTasks(hs) == \A n \in hs : ~Replicates(Decide27(n, hs, {}, {}))
- \* a check "replicates" when it hands the replicator a task with at least one candidate node. (With overlapping
-\* rules the code as found keeps calling the replicator with an EMPTY candidate list: a holder remembered from
-\* an earlier rule does not lower the shortage of a later rule - a phantom shortage that copies nothing.)
-Replicates(d) == \E k \in 1..Len(d.tasks) : Len(d.tasks[k].nodes) > 0
-Quiet(hs) == \A n \in hs : LET d == Decide27(n, hs, {}, {}) IN ~Replicates(d) /\ d.del = "none"
-NoTasks(hs) == \A n \in hs : ~Replicates(Decide27(n, hs, {}, {}))
- \* a check "replicates" when it hands the replicator a task with at least one candidate node. (With overlapping
-\* rules the code as found keeps calling the replicator with an EMPTY candidate list: a holder remembered from
-\* an earlier rule does not lower the shortage of a later rule - a phantom shortage that copies nothing.)
-Replicates(d) == \E k \in 1..Len(d.tasks) : Len(d.tasks[k].nodes) > 0
-Quiet(hs) == \A n \in hs : LET d == Decide27(n, hs, {}, {}) IN ~Replicates(d) /\ d.del = "none"
-NoTasks(hs) == \A n \in hs : ~Replicates(Decide27(n, hs, {}, {}))
- \* a check "replicates" when it hands the replicator a task with at least one candidate node. (With overlapping
-\* rules the code as found keeps calling the replicator with an EMPTY candidate list: a holder remembered from
-\* an earlier rule does not lower the shortage of a later rule - a phantom shortage that copies nothing.)
-Replicates(d) == \E k \in 1..Len(d.tasks) : Len(d.tasks[k].nodes) > 0
-Quiet(hs) == \A n \in hs : LET d == Decide27(n, hs, {}, {}) IN ~Replicates(d) /\ d.del = "none"
-NoTasks(hs) == \A n \in hs : ~Replicates(Decide27(n, hs, {}, {}))
- \* a check "replicates" when it hands the replicator a task with at least one candidate node. (With overlapping
-\* rules the code as found keeps calling the replicator with an EMPTY candidate list: a holder remembered from
-\* an earlier rule does not lower the shortage of a later rule - a phantom shortage that copies nothing.)
-Replicates(d) == \E k \in 1..Len(d.tasks) : Len(d.tasks[k].nodes) > 0
-Quiet(hs) == \A n \in hs : LET d == Decide27(n, hs, {}, {}) IN ~Replicates(d) /\ d.del = "none"
-NoTasks(hs) == \A n \in hs : ~Replicates(Decide27(n, hs, {}, {}))
- \* a check "replicates" when it hands the replicator a task with at least one candidate node. (With overlapping
-\* rules the code as found keeps calling the replicator with an EMPTY candidate list: a holder remembered from
-\* an earlier rule does not lower the shortage of a later rule - a phantom shortage that copies nothing.)
-Replicates(d) == \E k \in 1..Len(d.tasks) : Len(d.tasks[k].nodes) > 0
-Quiet(hs) == \A n \in hs : LET d == Decide27(n, hs, {}, {}) IN ~Replicates(d) /\ d.del = "none"
-NoTasks(hs) == \A n \in hs : ~Replicates(Decide27(n, hs, {}, {}))
-\\* a check "replicates" when it hands the replicator a task with at least one candidate node. (With overlapping
-\* rules the code as found keeps calling the replicator with an EMPTY candidate list: a holder remembered from
-\* an earlier rule does not lower the shortage of a later rule - a phantom shortage that copies nothing.)
-Replicates(d) == \E k \in 1..Len(d.tasks) : Len(d.tasks[k].nodes) > 0
-Quiet(hs) == \A n \in hs : LET d == Decide27(n, hs, {}, {}) IN ~Replicates(d) /\ d.del = "none"
-NoTasks(hs) == \A n \in hs : ~Replicates(Decide27(n, hs, {}, {}))
-*\* a check "replicates" when it hands the replicator a task with at least one candidate node. (With overlapping
-\* rules the code as found keeps calling the replicator with an EMPTY candidate list: a holder remembered from
-\* an earlier rule does not lower the shortage of a later rule - a phantom shortage that copies nothing.)
-Replicates(d) == \E k \in 1..Len(d.tasks) : Len(d.tasks[k].nodes) > 0
-Quiet(hs) == \A n \in hs : LET d == Decide27(n, hs, {}, {}) IN ~Replicates(d) /\ d.del = "none"
-NoTasks(hs) == \A n \in hs : ~Replicates(Decide27(n, hs, {}, {}))
- \* a check "replicates" when it hands the replicator a task with at least one candidate node. (With overlapping
-\* rules the code as found keeps calling the replicator with an EMPTY candidate list: a holder remembered from
-\* an earlier rule does not lower the shortage of a later rule - a phantom shortage that copies nothing.)
-Replicates(d) == \E k \in 1..Len(d.tasks) : Len(d.tasks[k].nodes) > 0
-Quiet(hs) == \A n \in hs : LET d == Decide27(n, hs, {}, {}) IN ~Replicates(d) /\ d.del = "none"
-NoTasks(hs) == \A n \in hs : ~Replicates(Decide27(n, hs, {}, {}))
-t\* a check "replicates" when it hands the replicator a task with at least one candidate node. (With overlapping
-\* rules the code as found keeps calling the replicator with an EMPTY candidate list: a holder remembered from
-\* an earlier rule does not lower the shortage of a later rule - a phantom shortage that copies nothing.)
-Replicates(d) == \E k \in 1..Len(d.tasks) : Len(d.tasks[k].nodes) > 0
-Quiet(hs) == \A n \in hs : LET d == Decide27(n, hs, {}, {}) IN ~Replicates(d) /\ d.del = "none"
-NoTasks(hs) == \A n \in hs : ~Replicates(Decide27(n, hs, {}, {}))
-h\* a check "replicates" when it hands the replicator a task with at least one candidate node. (With overlapping
-\* rules the code as found keeps calling the replicator with an EMPTY candidate list: a holder remembered from
-\* an earlier rule does not lower the shortage of a later rule - a phantom shortage that copies nothing.)
-Replicates(d) == \E k \in 1..Len(d.tasks) : Len(d.tasks[k].nodes) > 0
-Quiet(hs) == \A n \in hs : LET d == Decide27(n, hs, {}, {}) IN ~Replicates(d) /\ d.del = "none"
-NoTasks(hs) == \A n \in hs : ~Replicates(Decide27(n, hs, {}, {}))
-e\* a check "replicates" when it hands the replicator a task with at least one candidate node. (With overlapping
-\* rules the code as found keeps calling the replicator with an EMPTY candidate list: a holder remembered from
-\* an earlier rule does not lower the shortage of a later rule - a phantom shortage that copies nothing.)
-Replicates(d) == \E k \in 1..Len(d.tasks) : Len(d.tasks[k].nodes) > 0
-Quiet(hs) == \A n \in hs : LET d == Decide27(n, hs, {}, {}) IN ~Replicates(d) /\ d.del = "none"
-NoTasks(hs) == \A n \in hs : ~Replicates(Decide27(n, hs, {}, {}))
- \* a check "replicates" when it hands the replicator a task with at least one candidate node. (With overlapping
-\* rules the code as found keeps calling the replicator with an EMPTY candidate list: a holder remembered from
-\* an earlier rule does not lower the shortage of a later rule - a phantom shortage that copies nothing.)
-Replicates(d) == \E k \in 1..Len(d.tasks) : Len(d.tasks[k].nodes) > 0
-Quiet(hs) == \A n \in hs : LET d == Decide27(n, hs, {}, {}) IN ~Replicates(d) /\ d.del = "none"
-NoTasks(hs) == \A n \in hs : ~Replicates(Decide27(n, hs, {}, {}))
-p\* a check "replicates" when it hands the replicator a task with at least one candidate node. (With overlapping
-\* rules the code as found keeps calling the replicator with an EMPTY candidate list: a holder remembered from
-\* an earlier rule does not lower the shortage of a later rule - a phantom shortage that copies nothing.)
-Replicates(d) == \E k \in 1..Len(d.tasks) : Len(d.tasks[k].nodes) > 0
-Quiet(hs) == \A n \in hs : LET d == Decide27(n, hs, {}, {}) IN ~Replicates(d) /\ d.del = "none"
-NoTasks(hs) == \A n \in hs : ~Replicates(Decide27(n, hs, {}, {}))
-o\* a check "replicates" when it hands the replicator a task with at least one candidate node. (With overlapping
-\* rules the code as found keeps calling the replicator with an EMPTY candidate list: a holder remembered from
-\* an earlier rule does not lower the shortage of a later rule - a phantom shortage that copies nothing.)
-Replicates(d) == \E k \in 1..Len(d.tasks) : Len(d.tasks[k].nodes) > 0
-Quiet(hs) == \A n \in hs : LET d == Decide27(n, hs, {}, {}) IN ~Replicates(d) /\ d.del = "none"
-NoTasks(hs) == \A n \in hs : ~Replicates(Decide27(n, hs, {}, {}))
-l\* a check "replicates" when it hands the replicator a task with at least one candidate node. (With overlapping
-\* rules the code as found keeps calling the replicator with an EMPTY candidate list: a holder remembered from
-\* an earlier rule does not lower the shortage of a later rule - a phantom shortage that copies nothing.)
-Replicates(d) == \E k \in 1..Len(d.tasks) : Len(d.tasks[k].nodes) > 0
-Quiet(hs) == \A n \in hs : LET d == Decide27(n, hs, {}, {}) IN ~Replicates(d) /\ d.del = "none"
-NoTasks(hs) == \A n \in hs : ~Replicates(Decide27(n, hs, {}, {}))
-i\* a check "replicates" when it hands the replicator a task with at least one candidate node. (With overlapping
-\* rules the code as found keeps calling the replicator with an EMPTY candidate list: a holder remembered from
-\* an earlier rule does not lower the shortage of a later rule - a phantom shortage that copies nothing.)
-Replicates(d) == \E k \in 1..Len(d.tasks) : Len(d.tasks[k].nodes) > 0
-Quiet(hs) == \A n \in hs : LET d == Decide27(n, hs, {}, {}) IN ~Replicates(d) /\ d.del = "none"
-NoTasks(hs) == \A n \in hs : ~Replicates(Decide27(n, hs, {}, {}))
-c\* a check "replicates" when it hands the replicator a task with at least one candidate node. (With overlapping
-\* rules the code as found keeps calling the replicator with an EMPTY candidate list: a holder remembered from
-\* an earlier rule does not lower the shortage of a later rule - a phantom shortage that copies nothing.)
-Replicates(d) == \E k \in 1..Len(d.tasks) : Len(d.tasks[k].nodes) > 0
-Quiet(hs) == \A n \in hs : LET d == Decide27(n, hs, {}, {}) IN ~Replicates(d) /\ d.del = "none"
-NoTasks(hs) == \A n \in hs : ~Replicates(Decide27(n, hs, {}, {}))
-y\* a check "replicates" when it hands the replicator a task with at least one candidate node. (With overlapping
-\* rules the code as found keeps calling the replicator with an EMPTY candidate list: a holder remembered from
-\* an earlier rule does not lower the shortage of a later rule - a phantom shortage that copies nothing.)
-Replicates(d) == \E k \in 1..Len(d.tasks) : Len(d.tasks[k].nodes) > 0
-Quiet(hs) == \A n \in hs : LET d == Decide27(n, hs, {}, {}) IN ~Replicates(d) /\ d.del = "none"
-NoTasks(hs) == \A n \in hs : ~Replicates(Decide27(n, hs, {}, {}))
- \* a check "replicates" when it hands the replicator a task with at least one candidate node. (With overlapping
-\* rules the code as found keeps calling the replicator with an EMPTY candidate list: a holder remembered from
-\* an earlier rule does not lower the shortage of a later rule - a phantom shortage that copies nothing.)
-Replicates(d) == \E k \in 1..Len(d.tasks) : Len(d.tasks[k].nodes) > 0
-Quiet(hs) == \A n \in hs : LET d == Decide27(n, hs, {}, {}) IN ~Replicates(d) /\ d.del = "none"
-NoTasks(hs) == \A n \in hs : ~Replicates(Decide27(n, hs, {}, {}))
-(\* a check "replicates" when it hands the replicator a task with at least one candidate node. (With overlapping
-\* rules the code as found keeps calling the replicator with an EMPTY candidate list: a holder remembered from
-\* an earlier rule does not lower the shortage of a later rule - a phantom shortage that copies nothing.)
-Replicates(d) == \E k \in 1..Len(d.tasks) : Len(d.tasks[k].nodes) > 0
-Quiet(hs) == \A n \in hs : LET d == Decide27(n, hs, {}, {}) IN ~Replicates(d) /\ d.del = "none"
-NoTasks(hs) == \A n \in hs : ~Replicates(Decide27(n, hs, {}, {}))
-c\* a check "replicates" when it hands the replicator a task with at least one candidate node. (With overlapping
-\* rules the code as found keeps calling the replicator with an EMPTY candidate list: a holder remembered from
-\* an earlier rule does not lower the shortage of a later rule - a phantom shortage that copies nothing.)
-Replicates(d) == \E k \in 1..Len(d.tasks) : Len(d.tasks[k].nodes) > 0
-Quiet(hs) == \A n \in hs : LET d == Decide27(n, hs, {}, {}) IN ~Replicates(d) /\ d.del = "none"
-NoTasks(hs) == \A n \in hs : ~Replicates(Decide27(n, hs, {}, {}))
-o\* a check "replicates" when it hands the replicator a task with at least one candidate node. (With overlapping
-\* rules the code as found keeps calling the replicator with an EMPTY candidate list: a holder remembered from
-\* an earlier rule does not lower the shortage of a later rule - a phantom shortage that copies nothing.)
-Replicates(d) == \E k \in 1..Len(d.tasks) : Len(d.tasks[k].nodes) > 0
-Quiet(hs) == \A n \in hs : LET d == Decide27(n, hs, {}, {}) IN ~Replicates(d) /\ d.del = "none"
-NoTasks(hs) == \A n \in hs : ~Replicates(Decide27(n, hs, {}, {}))
-n\* a check "replicates" when it hands the replicator a task with at least one candidate node. (With overlapping
-\* rules the code as found keeps calling the replicator with an EMPTY candidate list: a holder remembered from
-\* an earlier rule does not lower the shortage of a later rule - a phantom shortage that copies nothing.)
-Replicates(d) == \E k \in 1..Len(d.tasks) : Len(d.tasks[k].nodes) > 0
-Quiet(hs) == \A n \in hs : LET d == Decide27(n, hs, {}, {}) IN ~Replicates(d) /\ d.del = "none"
-NoTasks(hs) == \A n \in hs : ~Replicates(Decide27(n, hs, {}, {}))
-s\* a check "replicates" when it hands the replicator a task with at least one candidate node. (With overlapping
-\* rules the code as found keeps calling the replicator with an EMPTY candidate list: a holder remembered from
-\* an earlier rule does not lower the shortage of a later rule - a phantom shortage that copies nothing.)
-Replicates(d) == \E k \in 1..Len(d.tasks) : Len(d.tasks[k].nodes) > 0
-Quiet(hs) == \A n \in hs : LET d == Decide27(n, hs, {}, {}) IN ~Replicates(d) /\ d.del = "none"
-NoTasks(hs) == \A n \in hs : ~Replicates(Decide27(n, hs, {}, {}))
-t\* a check "replicates" when it hands the replicator a task with at least one candidate node. (With overlapping
-\* rules the code as found keeps calling the replicator with an EMPTY candidate list: a holder remembered from
-\* an earlier rule does not lower the shortage of a later rule - a phantom shortage that copies nothing.)
-Replicates(d) == \E k \in 1..Len(d.tasks) : Len(d.tasks[k].nodes) > 0
-Quiet(hs) == \A n \in hs : LET d == Decide27(n, hs, {}, {}) IN ~Replicates(d) /\ d.del = "none"
-NoTasks(hs) == \A n \in hs : ~Replicates(Decide27(n, hs, {}, {}))
-a\* a check "replicates" when it hands the replicator a task with at least one candidate node. (With overlapping
-\* rules the code as found keeps calling the replicator with an EMPTY candidate list: a holder remembered from
-\* an earlier rule does not lower the shortage of a later rule - a phantom shortage that copies nothing.)
-Replicates(d) == \E k \in 1..Len(d.tasks) : Len(d.tasks[k].nodes) > 0
-Quiet(hs) == \A n \in hs : LET d == Decide27(n, hs, {}, {}) IN ~Replicates(d) /\ d.del = "none"
-NoTasks(hs) == \A n \in hs : ~Replicates(Decide27(n, hs, {}, {}))
-n\* a check "replicates" when it hands the replicator a task with at least one candidate node. (With overlapping
-\* rules the code as found keeps calling the replicator with an EMPTY candidate list: a holder remembered from
-\* an earlier rule does not lower the shortage of a later rule - a phantom shortage that copies nothing.)
-Replicates(d) == \E k \in 1..Len(d.tasks) : Len(d.tasks[k].nodes) > 0
-Quiet(hs) == \A n \in hs : LET d == Decide27(n, hs, {}, {}) IN ~Replicates(d) /\ d.del = "none"
-NoTasks(hs) == \A n \in hs : ~Replicates(Decide27(n, hs, {}, {}))
-t\* a check "replicates" when it hands the replicator a task with at least one candidate node. (With overlapping
-\* rules the code as found keeps calling the replicator with an EMPTY candidate list: a holder remembered from
-\* an earlier rule does not lower the shortage of a later rule - a phantom shortage that copies nothing.)
-Replicates(d) == \E k \in 1..Len(d.tasks) : Len(d.tasks[k].nodes) > 0
-Quiet(hs) == \A n \in hs : LET d == Decide27(n, hs, {}, {}) IN ~Replicates(d) /\ d.del = "none"
-NoTasks(hs) == \A n \in hs : ~Replicates(Decide27(n, hs, {}, {}))
- \* a check "replicates" when it hands the replicator a task with at least one candidate node. (With overlapping
-\* rules the code as found keeps calling the replicator with an EMPTY candidate list: a holder remembered from
-\* an earlier rule does not lower the shortage of a later rule - a phantom shortage that copies nothing.)
-Replicates(d) == \E k \in 1..Len(d.tasks) : Len(d.tasks[k].nodes) > 0
-Quiet(hs) == \A n \in hs : LET d == Decide27(n, hs, {}, {}) IN ~Replicates(d) /\ d.del = "none"
-NoTasks(hs) == \A n \in hs : ~Replicates(Decide27(n, hs, {}, {}))
-d\* a check "replicates" when it hands the replicator a task with at least one candidate node. (With overlapping
-\* rules the code as found keeps calling the replicator with an EMPTY candidate list: a holder remembered from
-\* an earlier rule does not lower the shortage of a later rule - a phantom shortage that copies nothing.)
-Replicates(d) == \E k \in 1..Len(d.tasks) : Len(d.tasks[k].nodes) > 0
-Quiet(hs) == \A n \in hs : LET d == Decide27(n, hs, {}, {}) IN ~Replicates(d) /\ d.del = "none"
-NoTasks(hs) == \A n \in hs : ~Replicates(Decide27(n, hs, {}, {}))
-u\* a check "replicates" when it hands the replicator a task with at least one candidate node. (With overlapping
-\* rules the code as found keeps calling the replicator with an EMPTY candidate list: a holder remembered from
-\* an earlier rule does not lower the shortage of a later rule - a phantom shortage that copies nothing.)
-Replicates(d) == \E k \in 1..Len(d.tasks) : Len(d.tasks[k].nodes) > 0
-Quiet(hs) == \A n \in hs : LET d == Decide27(n, hs, {}, {}) IN ~Replicates(d) /\ d.del = "none"
-NoTasks(hs) == \A n \in hs : ~Replicates(Decide27(n, hs, {}, {}))
-r\* a check "replicates" when it hands the replicator a task with at least one candidate node. (With overlapping
-\* rules the code as found keeps calling the replicator with an EMPTY candidate list: a holder remembered from
-\* an earlier rule does not lower the shortage of a later rule - a phantom shortage that copies nothing.)
-Replicates(d) == \E k \in 1..Len(d.tasks) : Len(d.tasks[k].nodes) > 0
-Quiet(hs) == \A n \in hs : LET d == Decide27(n, hs, {}, {}) IN ~Replicates(d) /\ d.del = "none"
-NoTasks(hs) == \A n \in hs : ~Replicates(Decide27(n, hs, {}, {}))
-i\* a check "replicates" when it hands the replicator a task with at least one candidate node. (With overlapping
-\* rules the code as found keeps calling the replicator with an EMPTY candidate list: a holder remembered from
-\* an earlier rule does not lower the shortage of a later rule - a phantom shortage that copies nothing.)
-Replicates(d) == \E k \in 1..Len(d.tasks) : Len(d.tasks[k].nodes) > 0
-Quiet(hs) == \A n \in hs : LET d == Decide27(n, hs, {}, {}) IN ~Replicates(d) /\ d.del = "none"
-NoTasks(hs) == \A n \in hs : ~Replicates(Decide27(n, hs, {}, {}))
-n\* a check "replicates" when it hands the replicator a task with at least one candidate node. (With overlapping
-\* rules the code as found keeps calling the replicator with an EMPTY candidate list: a holder remembered from
-\* an earlier rule does not lower the shortage of a later rule - a phantom shortage that copies nothing.)
-Replicates(d) == \E k \in 1..Len(d.tasks) : Len(d.tasks[k].nodes) > 0
-Quiet(hs) == \A n \in hs : LET d == Decide27(n, hs, {}, {}) IN ~Replicates(d) /\ d.del = "none"
-NoTasks(hs) == \A n \in hs : ~Replicates(Decide27(n, hs, {}, {}))
-g\* a check "replicates" when it hands the replicator a task with at least one candidate node. (With overlapping
-\* rules the code as found keeps calling the replicator with an EMPTY candidate list: a holder remembered from
-\* an earlier rule does not lower the shortage of a later rule - a phantom shortage that copies nothing.)
-Replicates(d) == \E k \in 1..Len(d.tasks) : Len(d.tasks[k].nodes) > 0
-Quiet(hs) == \A n \in hs : LET d == Decide27(n, hs, {}, {}) IN ~Replicates(d) /\ d.del = "none"
-NoTasks(hs) == \A n \in hs : ~Replicates(Decide27(n, hs, {}, {}))
- \* a check "replicates" when it hands the replicator a task with at least one candidate node. (With overlapping
-\* rules the code as found keeps calling the replicator with an EMPTY candidate list: a holder remembered from
-\* an earlier rule does not lower the shortage of a later rule - a phantom shortage that copies nothing.)
-Replicates(d) == \E k \in 1..Len(d.tasks) : Len(d.tasks[k].nodes) > 0
-Quiet(hs) == \A n \in hs : LET d == Decide27(n, hs, {}, {}) IN ~Replicates(d) /\ d.del = "none"
-NoTasks(hs) == \A n \in hs : ~Replicates(Decide27(n, hs, {}, {}))
-a\* a check "replicates" when it hands the replicator a task with at least one candidate node. (With overlapping
-\* rules the code as found keeps calling the replicator with an EMPTY candidate list: a holder remembered from
-\* an earlier rule does not lower the shortage of a later rule - a phantom shortage that copies nothing.)
-Replicates(d) == \E k \in 1..Len(d.tasks) : Len(d.tasks[k].nodes) > 0
-Quiet(hs) == \A n \in hs : LET d == Decide27(n, hs, {}, {}) IN ~Replicates(d) /\ d.del = "none"
-NoTasks(hs) == \A n \in hs : ~Replicates(Decide27(n, hs, {}, {}))
- \* a check "replicates" when it hands the replicator a task with at least one candidate node. (With overlapping
-\* rules the code as found keeps calling the replicator with an EMPTY candidate list: a holder remembered from
-\* an earlier rule does not lower the shortage of a later rule - a phantom shortage that copies nothing.)
-Replicates(d) == \E k \in 1..Len(d.tasks) : Len(d.tasks[k].nodes) > 0
-Quiet(hs) == \A n \in hs : LET d == Decide27(n, hs, {}, {}) IN ~Replicates(d) /\ d.del = "none"
-NoTasks(hs) == \A n \in hs : ~Replicates(Decide27(n, hs, {}, {}))
-b\* a check "replicates" when it hands the replicator a task with at least one candidate node. (With overlapping
-\* rules the code as found keeps calling the replicator with an EMPTY candidate list: a holder remembered from
-\* an earlier rule does not lower the shortage of a later rule - a phantom shortage that copies nothing.)
-Replicates(d) == \E k \in 1..Len(d.tasks) : Len(d.tasks[k].nodes) > 0
-Quiet(hs) == \A n \in hs : LET d == Decide27(n, hs, {}, {}) IN ~Replicates(d) /\ d.del = "none"
-NoTasks(hs) == \A n \in hs : ~Replicates(Decide27(n, hs, {}, {}))
-e\* a check "replicates" when it hands the replicator a task with at least one candidate node. (With overlapping
-\* rules the code as found keeps calling the replicator with an EMPTY candidate list: a holder remembered from
-\* an earlier rule does not lower the shortage of a later rule - a phantom shortage that copies nothing.)
-Replicates(d) == \E k \in 1..Len(d.tasks) : Len(d.tasks[k].nodes) > 0
-Quiet(hs) == \A n \in hs : LET d == Decide27(n, hs, {}, {}) IN ~Replicates(d) /\ d.del = "none"
-NoTasks(hs) == \A n \in hs : ~Replicates(Decide27(n, hs, {}, {}))
-h\* a check "replicates" when it hands the replicator a task with at least one candidate node. (With overlapping
-\* rules the code as found keeps calling the replicator with an EMPTY candidate list: a holder remembered from
-\* an earlier rule does not lower the shortage of a later rule - a phantom shortage that copies nothing.)
-Replicates(d) == \E k \in 1..Len(d.tasks) : Len(d.tasks[k].nodes) > 0
-Quiet(hs) == \A n \in hs : LET d == Decide27(n, hs, {}, {}) IN ~Replicates(d) /\ d.del = "none"
-NoTasks(hs) == \A n \in hs : ~Replicates(Decide27(n, hs, {}, {}))
-a\* a check "replicates" when it hands the replicator a task with at least one candidate node. (With overlapping
-\* rules the code as found keeps calling the replicator with an EMPTY candidate list: a holder remembered from
-\* an earlier rule does not lower the shortage of a later rule - a phantom shortage that copies nothing.)
-Replicates(d) == \E k \in 1..Len(d.tasks) : Len(d.tasks[k].nodes) > 0
-Quiet(hs) == \A n \in hs : LET d == Decide27(n, hs, {}, {}) IN ~Replicates(d) /\ d.del = "none"
-NoTasks(hs) == \A n \in hs : ~Replicates(Decide27(n, hs, {}, {}))
-v\* a check "replicates" when it hands the replicator a task with at least one candidate node. (With overlapping
-\* rules the code as found keeps calling the replicator with an EMPTY candidate list: a holder remembered from
-\* an earlier rule does not lower the shortage of a later rule - a phantom shortage that copies nothing.)
-Replicates(d) == \E k \in 1..Len(d.tasks) : Len(d.tasks[k].nodes) > 0
-Quiet(hs) == \A n \in hs : LET d == Decide27(n, hs, {}, {}) IN ~Replicates(d) /\ d.del = "none"
-NoTasks(hs) == \A n \in hs : ~Replicates(Decide27(n, hs, {}, {}))
-i\* a check "replicates" when it hands the replicator a task with at least one candidate node. (With overlapping
-\* rules the code as found keeps calling the replicator with an EMPTY candidate list: a holder remembered from
-\* an earlier rule does not lower the shortage of a later rule - a phantom shortage that copies nothing.)
-Replicates(d) == \E k \in 1..Len(d.tasks) : Len(d.tasks[k].nodes) > 0
-Quiet(hs) == \A n \in hs : LET d == Decide27(n, hs, {}, {}) IN ~Replicates(d) /\ d.del = "none"
-NoTasks(hs) == \A n \in hs : ~Replicates(Decide27(n, hs, {}, {}))
-o\* a check "replicates" when it hands the replicator a task with at least one candidate node. (With overlapping
-\* rules the code as found keeps calling the replicator with an EMPTY candidate list: a holder remembered from
-\* an earlier rule does not lower the shortage of a later rule - a phantom shortage that copies nothing.)
-Replicates(d) == \E k \in 1..Len(d.tasks) : Len(d.tasks[k].nodes) > 0
-Quiet(hs) == \A n \in hs : LET d == Decide27(n, hs, {}, {}) IN ~Replicates(d) /\ d.del = "none"
-NoTasks(hs) == \A n \in hs : ~Replicates(Decide27(n, hs, {}, {}))
-u\* a check "replicates" when it hands the replicator a task with at least one candidate node. (With overlapping
-\* rules the code as found keeps calling the replicator with an EMPTY candidate list: a holder remembered from
-\* an earlier rule does not lower the shortage of a later rule - a phantom shortage that copies nothing.)
-Replicates(d) == \E k \in 1..Len(d.tasks) : Len(d.tasks[k].nodes) > 0
-Quiet(hs) == \A n \in hs : LET d == Decide27(n, hs, {}, {}) IN ~Replicates(d) /\ d.del = "none"
-NoTasks(hs) == \A n \in hs : ~Replicates(Decide27(n, hs, {}, {}))
-r\* a check "replicates" when it hands the replicator a task with at least one candidate node. (With overlapping
-\* rules the code as found keeps calling the replicator with an EMPTY candidate list: a holder remembered from
-\* an earlier rule does not lower the shortage of a later rule - a phantom shortage that copies nothing.)
-Replicates(d) == \E k \in 1..Len(d.tasks) : Len(d.tasks[k].nodes) > 0
-Quiet(hs) == \A n \in hs : LET d == Decide27(n, hs, {}, {}) IN ~Replicates(d) /\ d.del = "none"
-NoTasks(hs) == \A n \in hs : ~Replicates(Decide27(n, hs, {}, {}))
-)\* a check "replicates" when it hands the replicator a task with at least one candidate node. (With overlapping
-\* rules the code as found keeps calling the replicator with an EMPTY candidate list: a holder remembered from
-\* an earlier rule does not lower the shortage of a later rule - a phantom shortage that copies nothing.)
-Replicates(d) == \E k \in 1..Len(d.tasks) : Len(d.tasks[k].nodes) > 0
-Quiet(hs) == \A n \in hs : LET d == Decide27(n, hs, {}, {}) IN ~Replicates(d) /\ d.del = "none"
-NoTasks(hs) == \A n \in hs : ~Replicates(Decide27(n, hs, {}, {}))
-
-\* a check "replicates" when it hands the replicator a task with at least one candidate node. (With overlapping
-\* rules the code as found keeps calling the replicator with an EMPTY candidate list: a holder remembered from
-\* an earlier rule does not lower the shortage of a later rule - a phantom shortage that copies nothing.)
-Replicates(d) == \E k \in 1..Len(d.tasks) : Len(d.tasks[k].nodes) > 0
-Quiet(hs) == \A n \in hs : LET d == Decide27(n, hs, {}, {}) IN ~Replicates(d) /\ d.del = "none"
-NoTasks(hs) == \A n \in hs : ~Replicates(Decide27(n, hs, {}, {}))
- \* a check "replicates" when it hands the replicator a task with at least one candidate node. (With overlapping
-\* rules the code as found keeps calling the replicator with an EMPTY candidate list: a holder remembered from
-\* an earlier rule does not lower the shortage of a later rule - a phantom shortage that copies nothing.)
-Replicates(d) == \E k \in 1..Len(d.tasks) : Len(d.tasks[k].nodes) > 0
-Quiet(hs) == \A n \in hs : LET d == Decide27(n, hs, {}, {}) IN ~Replicates(d) /\ d.del = "none"
-NoTasks(hs) == \A n \in hs : ~Replicates(Decide27(n, hs, {}, {}))
- \* a check "replicates" when it hands the replicator a task with at least one candidate node. (With overlapping
-\* rules the code as found keeps calling the replicator with an EMPTY candidate list: a holder remembered from
-\* an earlier rule does not lower the shortage of a later rule - a phantom shortage that copies nothing.)
-Replicates(d) == \E k \in 1..Len(d.tasks) : Len(d.tasks[k].nodes) > 0
-Quiet(hs) == \A n \in hs : LET d == Decide27(n, hs, {}, {}) IN ~Replicates(d) /\ d.del = "none"
-NoTasks(hs) == \A n \in hs : ~Replicates(Decide27(n, hs, {}, {}))
- \* a check "replicates" when it hands the replicator a task with at least one candidate node. (With overlapping
-\* rules the code as found keeps calling the replicator with an EMPTY candidate list: a holder remembered from
-\* an earlier rule does not lower the shortage of a later rule - a phantom shortage that copies nothing.)
-Replicates(d) == \E k \in 1..Len(d.tasks) : Len(d.tasks[k].nodes) > 0
-Quiet(hs) == \A n \in hs : LET d == Decide27(n, hs, {}, {}) IN ~Replicates(d) /\ d.del = "none"
-NoTasks(hs) == \A n \in hs : ~Replicates(Decide27(n, hs, {}, {}))
- \* a check "replicates" when it hands the replicator a task with at least one candidate node. (With overlapping
-\* rules the code as found keeps calling the replicator with an EMPTY candidate list: a holder remembered from
-\* an earlier rule does not lower the shortage of a later rule - a phantom shortage that copies nothing.)
-Replicates(d) == \E k \in 1..Len(d.tasks) : Len(d.tasks[k].nodes) > 0
-Quiet(hs) == \A n \in hs : LET d == Decide27(n, hs, {}, {}) IN ~Replicates(d) /\ d.del = "none"
-NoTasks(hs) == \A n \in hs : ~Replicates(Decide27(n, hs, {}, {}))
- \* a check "replicates" when it hands the replicator a task with at least one candidate node. (With overlapping
-\* rules the code as found keeps calling the replicator with an EMPTY candidate list: a holder remembered from
-\* an earlier rule does not lower the shortage of a later rule - a phantom shortage that copies nothing.)
-Replicates(d) == \E k \in 1..Len(d.tasks) : Len(d.tasks[k].nodes) > 0
-Quiet(hs) == \A n \in hs : LET d == Decide27(n, hs, {}, {}) IN ~Replicates(d) /\ d.del = "none"
-NoTasks(hs) == \A n \in hs : ~Replicates(Decide27(n, hs, {}, {}))
- \* a check "replicates" when it hands the replicator a task with at least one candidate node. (With overlapping
-\* rules the code as found keeps calling the replicator with an EMPTY candidate list: a holder remembered from
-\* an earlier rule does not lower the shortage of a later rule - a phantom shortage that copies nothing.)
-Replicates(d) == \E k \in 1..Len(d.tasks) : Len(d.tasks[k].nodes) > 0
-Quiet(hs) == \A n \in hs : LET d == Decide27(n, hs, {}, {}) IN ~Replicates(d) /\ d.del = "none"
-NoTasks(hs) == \A n \in hs : ~Replicates(Decide27(n, hs, {}, {}))
- \* a check "replicates" when it hands the replicator a task with at least one candidate node. (With overlapping
-\* rules the code as found keeps calling the replicator with an EMPTY candidate list: a holder remembered from
-\* an earlier rule does not lower the shortage of a later rule - a phantom shortage that copies nothing.)
-Replicates(d) == \E k \in 1..Len(d.tasks) : Len(d.tasks[k].nodes) > 0
-Quiet(hs) == \A n \in hs : LET d == Decide27(n, hs, {}, {}) IN ~Replicates(d) /\ d.del = "none"
-NoTasks(hs) == \A n \in hs : ~Replicates(Decide27(n, hs, {}, {}))
- \* a check "replicates" when it hands the replicator a task with at least one candidate node. (With overlapping
-\* rules the code as found keeps calling the replicator with an EMPTY candidate list: a holder remembered from
-\* an earlier rule does not lower the shortage of a later rule - a phantom shortage that copies nothing.)
-Replicates(d) == \E k \in 1..Len(d.tasks) : Len(d.tasks[k].nodes) > 0
-Quiet(hs) == \A n \in hs : LET d == Decide27(n, hs, {}, {}) IN ~Replicates(d) /\ d.del = "none"
-NoTasks(hs) == \A n \in hs : ~Replicates(Decide27(n, hs, {}, {}))
- \* a check "replicates" when it hands the replicator a task with at least one candidate node. (With overlapping
-\* rules the code as found keeps calling the replicator with an EMPTY candidate list: a holder remembered from
-\* an earlier rule does not lower the shortage of a later rule - a phantom shortage that copies nothing.)
-Replicates(d) == \E k \in 1..Len(d.tasks) : Len(d.tasks[k].nodes) > 0
-Quiet(hs) == \A n \in hs : LET d == Decide27(n, hs, {}, {}) IN ~Replicates(d) /\ d.del = "none"
-NoTasks(hs) == \A n \in hs : ~Replicates(Decide27(n, hs, {}, {}))
- \* a check "replicates" when it hands the replicator a task with at least one candidate node. (With overlapping
-\* rules the code as found keeps calling the replicator with an EMPTY candidate list: a holder remembered from
-\* an earlier rule does not lower the shortage of a later rule - a phantom shortage that copies nothing.)
-Replicates(d) == \E k \in 1..Len(d.tasks) : Len(d.tasks[k].nodes) > 0
-Quiet(hs) == \A n \in hs : LET d == Decide27(n, hs, {}, {}) IN ~Replicates(d) /\ d.del = "none"
-NoTasks(hs) == \A n \in hs : ~Replicates(Decide27(n, hs, {}, {}))
-h\* a check "replicates" when it hands the replicator a task with at least one candidate node. (With overlapping
-\* rules the code as found keeps calling the replicator with an EMPTY candidate list: a holder remembered from
-\* an earlier rule does not lower the shortage of a later rule - a phantom shortage that copies nothing.)
-Replicates(d) == \E k \in 1..Len(d.tasks) : Len(d.tasks[k].nodes) > 0
-Quiet(hs) == \A n \in hs : LET d == Decide27(n, hs, {}, {}) IN ~Replicates(d) /\ d.del = "none"
-NoTasks(hs) == \A n \in hs : ~Replicates(Decide27(n, hs, {}, {}))
-o\* a check "replicates" when it hands the replicator a task with at least one candidate node. (With overlapping
-\* rules the code as found keeps calling the replicator with an EMPTY candidate list: a holder remembered from
-\* an earlier rule does not lower the shortage of a later rule - a phantom shortage that copies nothing.)
-Replicates(d) == \E k \in 1..Len(d.tasks) : Len(d.tasks[k].nodes) > 0
-Quiet(hs) == \A n \in hs : LET d == Decide27(n, hs, {}, {}) IN ~Replicates(d) /\ d.del = "none"
-NoTasks(hs) == \A n \in hs : ~Replicates(Decide27(n, hs, {}, {}))
-l\* a check "replicates" when it hands the replicator a task with at least one candidate node. (With overlapping
-\* rules the code as found keeps calling the replicator with an EMPTY candidate list: a holder remembered from
-\* an earlier rule does not lower the shortage of a later rule - a phantom shortage that copies nothing.)
-Replicates(d) == \E k \in 1..Len(d.tasks) : Len(d.tasks[k].nodes) > 0
-Quiet(hs) == \A n \in hs : LET d == Decide27(n, hs, {}, {}) IN ~Replicates(d) /\ d.del = "none"
-NoTasks(hs) == \A n \in hs : ~Replicates(Decide27(n, hs, {}, {}))
-d\* a check "replicates" when it hands the replicator a task with at least one candidate node. (With overlapping
-\* rules the code as found keeps calling the replicator with an EMPTY candidate list: a holder remembered from
-\* an earlier rule does not lower the shortage of a later rule - a phantom shortage that copies nothing.)
-Replicates(d) == \E k \in 1..Len(d.tasks) : Len(d.tasks[k].nodes) > 0
-Quiet(hs) == \A n \in hs : LET d == Decide27(n, hs, {}, {}) IN ~Replicates(d) /\ d.del = "none"
-NoTasks(hs) == \A n \in hs : ~Replicates(Decide27(n, hs, {}, {}))
-e\* a check "replicates" when it hands the replicator a task with at least one candidate node. (With overlapping
-\* rules the code as found keeps calling the replicator with an EMPTY candidate list: a holder remembered from
-\* an earlier rule does not lower the shortage of a later rule - a phantom shortage that copies nothing.)
-Replicates(d) == \E k \in 1..Len(d.tasks) : Len(d.tasks[k].nodes) > 0
-Quiet(hs) == \A n \in hs : LET d == Decide27(n, hs, {}, {}) IN ~Replicates(d) /\ d.del = "none"
-NoTasks(hs) == \A n \in hs : ~Replicates(Decide27(n, hs, {}, {}))
-r\* a check "replicates" when it hands the replicator a task with at least one candidate node. (With overlapping
-\* rules the code as found keeps calling the replicator with an EMPTY candidate list: a holder remembered from
-\* an earlier rule does not lower the shortage of a later rule - a phantom shortage that copies nothing.)
-Replicates(d) == \E k \in 1..Len(d.tasks) : Len(d.tasks[k].nodes) > 0
-Quiet(hs) == \A n \in hs : LET d == Decide27(n, hs, {}, {}) IN ~Replicates(d) /\ d.del = "none"
-NoTasks(hs) == \A n \in hs : ~Replicates(Decide27(n, hs, {}, {}))
-s\* a check "replicates" when it hands the replicator a task with at least one candidate node. (With overlapping
-\* rules the code as found keeps calling the replicator with an EMPTY candidate list: a holder remembered from
-\* an earlier rule does not lower the shortage of a later rule - a phantom shortage that copies nothing.)
-Replicates(d) == \E k \in 1..Len(d.tasks) : Len(d.tasks[k].nodes) > 0
-Quiet(hs) == \A n \in hs : LET d == Decide27(n, hs, {}, {}) IN ~Replicates(d) /\ d.del = "none"
-NoTasks(hs) == \A n \in hs : ~Replicates(Decide27(n, hs, {}, {}))
-,\* a check "replicates" when it hands the replicator a task with at least one candidate node. (With overlapping
-\* rules the code as found keeps calling the replicator with an EMPTY candidate list: a holder remembered from
-\* an earlier rule does not lower the shortage of a later rule - a phantom shortage that copies nothing.)
-Replicates(d) == \E k \in 1..Len(d.tasks) : Len(d.tasks[k].nodes) > 0
-Quiet(hs) == \A n \in hs : LET d == Decide27(n, hs, {}, {}) IN ~Replicates(d) /\ d.del = "none"
-NoTasks(hs) == \A n \in hs : ~Replicates(Decide27(n, hs, {}, {}))
- \* a check "replicates" when it hands the replicator a task with at least one candidate node. (With overlapping
-\* rules the code as found keeps calling the replicator with an EMPTY candidate list: a holder remembered from
-\* an earlier rule does not lower the shortage of a later rule - a phantom shortage that copies nothing.)
-Replicates(d) == \E k \in 1..Len(d.tasks) : Len(d.tasks[k].nodes) > 0
-Quiet(hs) == \A n \in hs : LET d == Decide27(n, hs, {}, {}) IN ~Replicates(d) /\ d.del = "none"
-NoTasks(hs) == \A n \in hs : ~Replicates(Decide27(n, hs, {}, {}))
- \* a check "replicates" when it hands the replicator a task with at least one candidate node. (With overlapping
-\* rules the code as found keeps calling the replicator with an EMPTY candidate list: a holder remembered from
-\* an earlier rule does not lower the shortage of a later rule - a phantom shortage that copies nothing.)
-Replicates(d) == \E k \in 1..Len(d.tasks) : Len(d.tasks[k].nodes) > 0
-Quiet(hs) == \A n \in hs : LET d == Decide27(n, hs, {}, {}) IN ~Replicates(d) /\ d.del = "none"
-NoTasks(hs) == \A n \in hs : ~Replicates(Decide27(n, hs, {}, {}))
- \* a check "replicates" when it hands the replicator a task with at least one candidate node. (With overlapping
-\* rules the code as found keeps calling the replicator with an EMPTY candidate list: a holder remembered from
-\* an earlier rule does not lower the shortage of a later rule - a phantom shortage that copies nothing.)
-Replicates(d) == \E k \in 1..Len(d.tasks) : Len(d.tasks[k].nodes) > 0
-Quiet(hs) == \A n \in hs : LET d == Decide27(n, hs, {}, {}) IN ~Replicates(d) /\ d.del = "none"
-NoTasks(hs) == \A n \in hs : ~Replicates(Decide27(n, hs, {}, {}))
- \* a check "replicates" when it hands the replicator a task with at least one candidate node. (With overlapping
-\* rules the code as found keeps calling the replicator with an EMPTY candidate list: a holder remembered from
-\* an earlier rule does not lower the shortage of a later rule - a phantom shortage that copies nothing.)
-Replicates(d) == \E k \in 1..Len(d.tasks) : Len(d.tasks[k].nodes) > 0
-Quiet(hs) == \A n \in hs : LET d == Decide27(n, hs, {}, {}) IN ~Replicates(d) /\ d.del = "none"
-NoTasks(hs) == \A n \in hs : ~Replicates(Decide27(n, hs, {}, {}))
- \* a check "replicates" when it hands the replicator a task with at least one candidate node. (With overlapping
-\* rules the code as found keeps calling the replicator with an EMPTY candidate list: a holder remembered from
-\* an earlier rule does not lower the shortage of a later rule - a phantom shortage that copies nothing.)
-Replicates(d) == \E k \in 1..Len(d.tasks) : Len(d.tasks[k].nodes) > 0
-Quiet(hs) == \A n \in hs : LET d == Decide27(n, hs, {}, {}) IN ~Replicates(d) /\ d.del = "none"
-NoTasks(hs) == \A n \in hs : ~Replicates(Decide27(n, hs, {}, {}))
- \* a check "replicates" when it hands the replicator a task with at least one candidate node. (With overlapping
-\* rules the code as found keeps calling the replicator with an EMPTY candidate list: a holder remembered from
-\* an earlier rule does not lower the shortage of a later rule - a phantom shortage that copies nothing.)
-Replicates(d) == \E k \in 1..Len(d.tasks) : Len(d.tasks[k].nodes) > 0
-Quiet(hs) == \A n \in hs : LET d == Decide27(n, hs, {}, {}) IN ~Replicates(d) /\ d.del = "none"
-NoTasks(hs) == \A n \in hs : ~Replicates(Decide27(n, hs, {}, {}))
- \* a check "replicates" when it hands the replicator a task with at least one candidate node. (With overlapping
-\* rules the code as found keeps calling the replicator with an EMPTY candidate list: a holder remembered from
-\* an earlier rule does not lower the shortage of a later rule - a phantom shortage that copies nothing.)
-Replicates(d) == \E k \in 1..Len(d.tasks) : Len(d.tasks[k].nodes) > 0
-Quiet(hs) == \A n \in hs : LET d == Decide27(n, hs, {}, {}) IN ~Replicates(d) /\ d.del = "none"
-NoTasks(hs) == \A n \in hs : ~Replicates(Decide27(n, hs, {}, {}))
- \* a check "replicates" when it hands the replicator a task with at least one candidate node. (With overlapping
-\* rules the code as found keeps calling the replicator with an EMPTY candidate list: a holder remembered from
-\* an earlier rule does not lower the shortage of a later rule - a phantom shortage that copies nothing.)
-Replicates(d) == \E k \in 1..Len(d.tasks) : Len(d.tasks[k].nodes) > 0
-Quiet(hs) == \A n \in hs : LET d == Decide27(n, hs, {}, {}) IN ~Replicates(d) /\ d.del = "none"
-NoTasks(hs) == \A n \in hs : ~Replicates(Decide27(n, hs, {}, {}))
- \* a check "replicates" when it hands the replicator a task with at least one candidate node. (With overlapping
-\* rules the code as found keeps calling the replicator with an EMPTY candidate list: a holder remembered from
-\* an earlier rule does not lower the shortage of a later rule - a phantom shortage that copies nothing.)
-Replicates(d) == \E k \in 1..Len(d.tasks) : Len(d.tasks[k].nodes) > 0
-Quiet(hs) == \A n \in hs : LET d == Decide27(n, hs, {}, {}) IN ~Replicates(d) /\ d.del = "none"
-NoTasks(hs) == \A n \in hs : ~Replicates(Decide27(n, hs, {}, {}))
- \* a check "replicates" when it hands the replicator a task with at least one candidate node. (With overlapping
-\* rules the code as found keeps calling the replicator with an EMPTY candidate list: a holder remembered from
-\* an earlier rule does not lower the shortage of a later rule - a phantom shortage that copies nothing.)
-Replicates(d) == \E k \in 1..Len(d.tasks) : Len(d.tasks[k].nodes) > 0
-Quiet(hs) == \A n \in hs : LET d == Decide27(n, hs, {}, {}) IN ~Replicates(d) /\ d.del = "none"
-NoTasks(hs) == \A n \in hs : ~Replicates(Decide27(n, hs, {}, {}))
-\\* a check "replicates" when it hands the replicator a task with at least one candidate node. (With overlapping
-\* rules the code as found keeps calling the replicator with an EMPTY candidate list: a holder remembered from
-\* an earlier rule does not lower the shortage of a later rule - a phantom shortage that copies nothing.)
-Replicates(d) == \E k \in 1..Len(d.tasks) : Len(d.tasks[k].nodes) > 0
-Quiet(hs) == \A n \in hs : LET d == Decide27(n, hs, {}, {}) IN ~Replicates(d) /\ d.del = "none"
-NoTasks(hs) == \A n \in hs : ~Replicates(Decide27(n, hs, {}, {}))
-*\* a check "replicates" when it hands the replicator a task with at least one candidate node. (With overlapping
-\* rules the code as found keeps calling the replicator with an EMPTY candidate list: a holder remembered from
-\* an earlier rule does not lower the shortage of a later rule - a phantom shortage that copies nothing.)
-Replicates(d) == \E k \in 1..Len(d.tasks) : Len(d.tasks[k].nodes) > 0
-Quiet(hs) == \A n \in hs : LET d == Decide27(n, hs, {}, {}) IN ~Replicates(d) /\ d.del = "none"
-NoTasks(hs) == \A n \in hs : ~Replicates(Decide27(n, hs, {}, {}))
- \* a check "replicates" when it hands the replicator a task with at least one candidate node. (With overlapping
-\* rules the code as found keeps calling the replicator with an EMPTY candidate list: a holder remembered from
-\* an earlier rule does not lower the shortage of a later rule - a phantom shortage that copies nothing.)
-Replicates(d) == \E k \in 1..Len(d.tasks) : Len(d.tasks[k].nodes) > 0
-Quiet(hs) == \A n \in hs : LET d == Decide27(n, hs, {}, {}) IN ~Replicates(d) /\ d.del = "none"
-NoTasks(hs) == \A n \in hs : ~Replicates(Decide27(n, hs, {}, {}))
-w\* a check "replicates" when it hands the replicator a task with at least one candidate node. (With overlapping
-\* rules the code as found keeps calling the replicator with an EMPTY candidate list: a holder remembered from
-\* an earlier rule does not lower the shortage of a later rule - a phantom shortage that copies nothing.)
-Replicates(d) == \E k \in 1..Len(d.tasks) : Len(d.tasks[k].nodes) > 0
-Quiet(hs) == \A n \in hs : LET d == Decide27(n, hs, {}, {}) IN ~Replicates(d) /\ d.del = "none"
-NoTasks(hs) == \A n \in hs : ~Replicates(Decide27(n, hs, {}, {}))
-h\* a check "replicates" when it hands the replicator a task with at least one candidate node. (With overlapping
-\* rules the code as found keeps calling the replicator with an EMPTY candidate list: a holder remembered from
-\* an earlier rule does not lower the shortage of a later rule - a phantom shortage that copies nothing.)
-Replicates(d) == \E k \in 1..Len(d.tasks) : Len(d.tasks[k].nodes) > 0
-Quiet(hs) == \A n \in hs : LET d == Decide27(n, hs, {}, {}) IN ~Replicates(d) /\ d.del = "none"
-NoTasks(hs) == \A n \in hs : ~Replicates(Decide27(n, hs, {}, {}))
-o\* a check "replicates" when it hands the replicator a task with at least one candidate node. (With overlapping
-\* rules the code as found keeps calling the replicator with an EMPTY candidate list: a holder remembered from
-\* an earlier rule does not lower the shortage of a later rule - a phantom shortage that copies nothing.)
-Replicates(d) == \E k \in 1..Len(d.tasks) : Len(d.tasks[k].nodes) > 0
-Quiet(hs) == \A n \in hs : LET d == Decide27(n, hs, {}, {}) IN ~Replicates(d) /\ d.del = "none"
-NoTasks(hs) == \A n \in hs : ~Replicates(Decide27(n, hs, {}, {}))
- \* a check "replicates" when it hands the replicator a task with at least one candidate node. (With overlapping
-\* rules the code as found keeps calling the replicator with an EMPTY candidate list: a holder remembered from
-\* an earlier rule does not lower the shortage of a later rule - a phantom shortage that copies nothing.)
-Replicates(d) == \E k \in 1..Len(d.tasks) : Len(d.tasks[k].nodes) > 0
-Quiet(hs) == \A n \in hs : LET d == Decide27(n, hs, {}, {}) IN ~Replicates(d) /\ d.del = "none"
-NoTasks(hs) == \A n \in hs : ~Replicates(Decide27(n, hs, {}, {}))
-s\* a check "replicates" when it hands the replicator a task with at least one candidate node. (With overlapping
-\* rules the code as found keeps calling the replicator with an EMPTY candidate list: a holder remembered from
-\* an earlier rule does not lower the shortage of a later rule - a phantom shortage that copies nothing.)
-Replicates(d) == \E k \in 1..Len(d.tasks) : Len(d.tasks[k].nodes) > 0
-Quiet(hs) == \A n \in hs : LET d == Decide27(n, hs, {}, {}) IN ~Replicates(d) /\ d.del = "none"
-NoTasks(hs) == \A n \in hs : ~Replicates(Decide27(n, hs, {}, {}))
-t\* a check "replicates" when it hands the replicator a task with at least one candidate node. (With overlapping
-\* rules the code as found keeps calling the replicator with an EMPTY candidate list: a holder remembered from
-\* an earlier rule does not lower the shortage of a later rule - a phantom shortage that copies nothing.)
-Replicates(d) == \E k \in 1..Len(d.tasks) : Len(d.tasks[k].nodes) > 0
-Quiet(hs) == \A n \in hs : LET d == Decide27(n, hs, {}, {}) IN ~Replicates(d) /\ d.del = "none"
-NoTasks(hs) == \A n \in hs : ~Replicates(Decide27(n, hs, {}, {}))
-o\* a check "replicates" when it hands the replicator a task with at least one candidate node. (With overlapping
-\* rules the code as found keeps calling the replicator with an EMPTY candidate list: a holder remembered from
-\* an earlier rule does not lower the shortage of a later rule - a phantom shortage that copies nothing.)
-Replicates(d) == \E k \in 1..Len(d.tasks) : Len(d.tasks[k].nodes) > 0
-Quiet(hs) == \A n \in hs : LET d == Decide27(n, hs, {}, {}) IN ~Replicates(d) /\ d.del = "none"
-NoTasks(hs) == \A n \in hs : ~Replicates(Decide27(n, hs, {}, {}))
-r\* a check "replicates" when it hands the replicator a task with at least one candidate node. (With overlapping
-\* rules the code as found keeps calling the replicator with an EMPTY candidate list: a holder remembered from
-\* an earlier rule does not lower the shortage of a later rule - a phantom shortage that copies nothing.)
-Replicates(d) == \E k \in 1..Len(d.tasks) : Len(d.tasks[k].nodes) > 0
-Quiet(hs) == \A n \in hs : LET d == Decide27(n, hs, {}, {}) IN ~Replicates(d) /\ d.del = "none"
-NoTasks(hs) == \A n \in hs : ~Replicates(Decide27(n, hs, {}, {}))
-e\* a check "replicates" when it hands the replicator a task with at least one candidate node. (With overlapping
-\* rules the code as found keeps calling the replicator with an EMPTY candidate list: a holder remembered from
-\* an earlier rule does not lower the shortage of a later rule - a phantom shortage that copies nothing.)
-Replicates(d) == \E k \in 1..Len(d.tasks) : Len(d.tasks[k].nodes) > 0
-Quiet(hs) == \A n \in hs : LET d == Decide27(n, hs, {}, {}) IN ~Replicates(d) /\ d.del = "none"
-NoTasks(hs) == \A n \in hs : ~Replicates(Decide27(n, hs, {}, {}))
-s\* a check "replicates" when it hands the replicator a task with at least one candidate node. (With overlapping
-\* rules the code as found keeps calling the replicator with an EMPTY candidate list: a holder remembered from
-\* an earlier rule does not lower the shortage of a later rule - a phantom shortage that copies nothing.)
-Replicates(d) == \E k \in 1..Len(d.tasks) : Len(d.tasks[k].nodes) > 0
-Quiet(hs) == \A n \in hs : LET d == Decide27(n, hs, {}, {}) IN ~Replicates(d) /\ d.del = "none"
-NoTasks(hs) == \A n \in hs : ~Replicates(Decide27(n, hs, {}, {}))
- \* a check "replicates" when it hands the replicator a task with at least one candidate node. (With overlapping
-\* rules the code as found keeps calling the replicator with an EMPTY candidate list: a holder remembered from
-\* an earlier rule does not lower the shortage of a later rule - a phantom shortage that copies nothing.)
-Replicates(d) == \E k \in 1..Len(d.tasks) : Len(d.tasks[k].nodes) > 0
-Quiet(hs) == \A n \in hs : LET d == Decide27(n, hs, {}, {}) IN ~Replicates(d) /\ d.del = "none"
-NoTasks(hs) == \A n \in hs : ~Replicates(Decide27(n, hs, {}, {}))
-t\* a check "replicates" when it hands the replicator a task with at least one candidate node. (With overlapping
-\* rules the code as found keeps calling the replicator with an EMPTY candidate list: a holder remembered from
-\* an earlier rule does not lower the shortage of a later rule - a phantom shortage that copies nothing.)
-Replicates(d) == \E k \in 1..Len(d.tasks) : Len(d.tasks[k].nodes) > 0
-Quiet(hs) == \A n \in hs : LET d == Decide27(n, hs, {}, {}) IN ~Replicates(d) /\ d.del = "none"
-NoTasks(hs) == \A n \in hs : ~Replicates(Decide27(n, hs, {}, {}))
-h\* a check "replicates" when it hands the replicator a task with at least one candidate node. (With overlapping
-\* rules the code as found keeps calling the replicator with an EMPTY candidate list: a holder remembered from
-\* an earlier rule does not lower the shortage of a later rule - a phantom shortage that copies nothing.)
-Replicates(d) == \E k \in 1..Len(d.tasks) : Len(d.tasks[k].nodes) > 0
-Quiet(hs) == \A n \in hs : LET d == Decide27(n, hs, {}, {}) IN ~Replicates(d) /\ d.del = "none"
-NoTasks(hs) == \A n \in hs : ~Replicates(Decide27(n, hs, {}, {}))
-e\* a check "replicates" when it hands the replicator a task with at least one candidate node. (With overlapping
-\* rules the code as found keeps calling the replicator with an EMPTY candidate list: a holder remembered from
-\* an earlier rule does not lower the shortage of a later rule - a phantom shortage that copies nothing.)
-Replicates(d) == \E k \in 1..Len(d.tasks) : Len(d.tasks[k].nodes) > 0
-Quiet(hs) == \A n \in hs : LET d == Decide27(n, hs, {}, {}) IN ~Replicates(d) /\ d.del = "none"
-NoTasks(hs) == \A n \in hs : ~Replicates(Decide27(n, hs, {}, {}))
- \* a check "replicates" when it hands the replicator a task with at least one candidate node. (With overlapping
-\* rules the code as found keeps calling the replicator with an EMPTY candidate list: a holder remembered from
-\* an earlier rule does not lower the shortage of a later rule - a phantom shortage that copies nothing.)
-Replicates(d) == \E k \in 1..Len(d.tasks) : Len(d.tasks[k].nodes) > 0
-Quiet(hs) == \A n \in hs : LET d == Decide27(n, hs, {}, {}) IN ~Replicates(d) /\ d.del = "none"
-NoTasks(hs) == \A n \in hs : ~Replicates(Decide27(n, hs, {}, {}))
-o\* a check "replicates" when it hands the replicator a task with at least one candidate node. (With overlapping
-\* rules the code as found keeps calling the replicator with an EMPTY candidate list: a holder remembered from
-\* an earlier rule does not lower the shortage of a later rule - a phantom shortage that copies nothing.)
-Replicates(d) == \E k \in 1..Len(d.tasks) : Len(d.tasks[k].nodes) > 0
-Quiet(hs) == \A n \in hs : LET d == Decide27(n, hs, {}, {}) IN ~Replicates(d) /\ d.del = "none"
-NoTasks(hs) == \A n \in hs : ~Replicates(Decide27(n, hs, {}, {}))
-b\* a check "replicates" when it hands the replicator a task with at least one candidate node. (With overlapping
-\* rules the code as found keeps calling the replicator with an EMPTY candidate list: a holder remembered from
-\* an earlier rule does not lower the shortage of a later rule - a phantom shortage that copies nothing.)
-Replicates(d) == \E k \in 1..Len(d.tasks) : Len(d.tasks[k].nodes) > 0
-Quiet(hs) == \A n \in hs : LET d == Decide27(n, hs, {}, {}) IN ~Replicates(d) /\ d.del = "none"
-NoTasks(hs) == \A n \in hs : ~Replicates(Decide27(n, hs, {}, {}))
-j\* a check "replicates" when it hands the replicator a task with at least one candidate node. (With overlapping
-\* rules the code as found keeps calling the replicator with an EMPTY candidate list: a holder remembered from
-\* an earlier rule does not lower the shortage of a later rule - a phantom shortage that copies nothing.)
-Replicates(d) == \E k \in 1..Len(d.tasks) : Len(d.tasks[k].nodes) > 0
-Quiet(hs) == \A n \in hs : LET d == Decide27(n, hs, {}, {}) IN ~Replicates(d) /\ d.del = "none"
-NoTasks(hs) == \A n \in hs : ~Replicates(Decide27(n, hs, {}, {}))
-e\* a check "replicates" when it hands the replicator a task with at least one candidate node. (With overlapping
-\* rules the code as found keeps calling the replicator with an EMPTY candidate list: a holder remembered from
-\* an earlier rule does not lower the shortage of a later rule - a phantom shortage that copies nothing.)
-Replicates(d) == \E k \in 1..Len(d.tasks) : Len(d.tasks[k].nodes) > 0
-Quiet(hs) == \A n \in hs : LET d == Decide27(n, hs, {}, {}) IN ~Replicates(d) /\ d.del = "none"
-NoTasks(hs) == \A n \in hs : ~Replicates(Decide27(n, hs, {}, {}))
-c\* a check "replicates" when it hands the replicator a task with at least one candidate node. (With overlapping
-\* rules the code as found keeps calling the replicator with an EMPTY candidate list: a holder remembered from
-\* an earlier rule does not lower the shortage of a later rule - a phantom shortage that copies nothing.)
-Replicates(d) == \E k \in 1..Len(d.tasks) : Len(d.tasks[k].nodes) > 0
-Quiet(hs) == \A n \in hs : LET d == Decide27(n, hs, {}, {}) IN ~Replicates(d) /\ d.del = "none"
-NoTasks(hs) == \A n \in hs : ~Replicates(Decide27(n, hs, {}, {}))
-t\* a check "replicates" when it hands the replicator a task with at least one candidate node. (With overlapping
-\* rules the code as found keeps calling the replicator with an EMPTY candidate list: a holder remembered from
-\* an earlier rule does not lower the shortage of a later rule - a phantom shortage that copies nothing.)
-Replicates(d) == \E k \in 1..Len(d.tasks) : Len(d.tasks[k].nodes) > 0
-Quiet(hs) == \A n \in hs : LET d == Decide27(n, hs, {}, {}) IN ~Replicates(d) /\ d.del = "none"
-NoTasks(hs) == \A n \in hs : ~Replicates(Decide27(n, hs, {}, {}))
-
-\* a check "replicates" when it hands the replicator a task with at least one candidate node. (With overlapping
-\* rules the code as found keeps calling the replicator with an EMPTY candidate list: a holder remembered from
-\* an earlier rule does not lower the shortage of a later rule - a phantom shortage that copies nothing.)
-Replicates(d) == \E k \in 1..Len(d.tasks) : Len(d.tasks[k].nodes) > 0
-Quiet(hs) == \A n \in hs : LET d == Decide27(n, hs, {}, {}) IN ~Replicates(d) /\ d.del = "none"
-NoTasks(hs) == \A n \in hs : ~Replicates(Decide27(n, hs, {}, {}))
- \* a check "replicates" when it hands the replicator a task with at least one candidate node. (With overlapping
-\* rules the code as found keeps calling the replicator with an EMPTY candidate list: a holder remembered from
-\* an earlier rule does not lower the shortage of a later rule - a phantom shortage that copies nothing.)
-Replicates(d) == \E k \in 1..Len(d.tasks) : Len(d.tasks[k].nodes) > 0
-Quiet(hs) == \A n \in hs : LET d == Decide27(n, hs, {}, {}) IN ~Replicates(d) /\ d.del = "none"
-NoTasks(hs) == \A n \in hs : ~Replicates(Decide27(n, hs, {}, {}))
- \* a check "replicates" when it hands the replicator a task with at least one candidate node. (With overlapping
-\* rules the code as found keeps calling the replicator with an EMPTY candidate list: a holder remembered from
-\* an earlier rule does not lower the shortage of a later rule - a phantom shortage that copies nothing.)
-Replicates(d) == \E k \in 1..Len(d.tasks) : Len(d.tasks[k].nodes) > 0
-Quiet(hs) == \A n \in hs : LET d == Decide27(n, hs, {}, {}) IN ~Replicates(d) /\ d.del = "none"
-NoTasks(hs) == \A n \in hs : ~Replicates(Decide27(n, hs, {}, {}))
- \* a check "replicates" when it hands the replicator a task with at least one candidate node. (With overlapping
-\* rules the code as found keeps calling the replicator with an EMPTY candidate list: a holder remembered from
-\* an earlier rule does not lower the shortage of a later rule - a phantom shortage that copies nothing.)
-Replicates(d) == \E k \in 1..Len(d.tasks) : Len(d.tasks[k].nodes) > 0
-Quiet(hs) == \A n \in hs : LET d == Decide27(n, hs, {}, {}) IN ~Replicates(d) /\ d.del = "none"
-NoTasks(hs) == \A n \in hs : ~Replicates(Decide27(n, hs, {}, {}))
- \* a check "replicates" when it hands the replicator a task with at least one candidate node. (With overlapping
-\* rules the code as found keeps calling the replicator with an EMPTY candidate list: a holder remembered from
-\* an earlier rule does not lower the shortage of a later rule - a phantom shortage that copies nothing.)
-Replicates(d) == \E k \in 1..Len(d.tasks) : Len(d.tasks[k].nodes) > 0
-Quiet(hs) == \A n \in hs : LET d == Decide27(n, hs, {}, {}) IN ~Replicates(d) /\ d.del = "none"
-NoTasks(hs) == \A n \in hs : ~Replicates(Decide27(n, hs, {}, {}))
- \* a check "replicates" when it hands the replicator a task with at least one candidate node. (With overlapping
-\* rules the code as found keeps calling the replicator with an EMPTY candidate list: a holder remembered from
-\* an earlier rule does not lower the shortage of a later rule - a phantom shortage that copies nothing.)
-Replicates(d) == \E k \in 1..Len(d.tasks) : Len(d.tasks[k].nodes) > 0
-Quiet(hs) == \A n \in hs : LET d == Decide27(n, hs, {}, {}) IN ~Replicates(d) /\ d.del = "none"
-NoTasks(hs) == \A n \in hs : ~Replicates(Decide27(n, hs, {}, {}))
- \* a check "replicates" when it hands the replicator a task with at least one candidate node. (With overlapping
-\* rules the code as found keeps calling the replicator with an EMPTY candidate list: a holder remembered from
-\* an earlier rule does not lower the shortage of a later rule - a phantom shortage that copies nothing.)
-Replicates(d) == \E k \in 1..Len(d.tasks) : Len(d.tasks[k].nodes) > 0
-Quiet(hs) == \A n \in hs : LET d == Decide27(n, hs, {}, {}) IN ~Replicates(d) /\ d.del = "none"
-NoTasks(hs) == \A n \in hs : ~Replicates(Decide27(n, hs, {}, {}))
- \* a check "replicates" when it hands the replicator a task with at least one candidate node. (With overlapping
-\* rules the code as found keeps calling the replicator with an EMPTY candidate list: a holder remembered from
-\* an earlier rule does not lower the shortage of a later rule - a phantom shortage that copies nothing.)
-Replicates(d) == \E k \in 1..Len(d.tasks) : Len(d.tasks[k].nodes) > 0
-Quiet(hs) == \A n \in hs : LET d == Decide27(n, hs, {}, {}) IN ~Replicates(d) /\ d.del = "none"
-NoTasks(hs) == \A n \in hs : ~Replicates(Decide27(n, hs, {}, {}))
- \* a check "replicates" when it hands the replicator a task with at least one candidate node. (With overlapping
-\* rules the code as found keeps calling the replicator with an EMPTY candidate list: a holder remembered from
-\* an earlier rule does not lower the shortage of a later rule - a phantom shortage that copies nothing.)
-Replicates(d) == \E k \in 1..Len(d.tasks) : Len(d.tasks[k].nodes) > 0
-Quiet(hs) == \A n \in hs : LET d == Decide27(n, hs, {}, {}) IN ~Replicates(d) /\ d.del = "none"
-NoTasks(hs) == \A n \in hs : ~Replicates(Decide27(n, hs, {}, {}))
- \* a check "replicates" when it hands the replicator a task with at least one candidate node. (With overlapping
-\* rules the code as found keeps calling the replicator with an EMPTY candidate list: a holder remembered from
-\* an earlier rule does not lower the shortage of a later rule - a phantom shortage that copies nothing.)
-Replicates(d) == \E k \in 1..Len(d.tasks) : Len(d.tasks[k].nodes) > 0
-Quiet(hs) == \A n \in hs : LET d == Decide27(n, hs, {}, {}) IN ~Replicates(d) /\ d.del = "none"
-NoTasks(hs) == \A n \in hs : ~Replicates(Decide27(n, hs, {}, {}))
- \* a check "replicates" when it hands the replicator a task with at least one candidate node. (With overlapping
-\* rules the code as found keeps calling the replicator with an EMPTY candidate list: a holder remembered from
-\* an earlier rule does not lower the shortage of a later rule - a phantom shortage that copies nothing.)
-Replicates(d) == \E k \in 1..Len(d.tasks) : Len(d.tasks[k].nodes) > 0
-Quiet(hs) == \A n \in hs : LET d == Decide27(n, hs, {}, {}) IN ~Replicates(d) /\ d.del = "none"
-NoTasks(hs) == \A n \in hs : ~Replicates(Decide27(n, hs, {}, {}))
-r\* a check "replicates" when it hands the replicator a task with at least one candidate node. (With overlapping
-\* rules the code as found keeps calling the replicator with an EMPTY candidate list: a holder remembered from
-\* an earlier rule does not lower the shortage of a later rule - a phantom shortage that copies nothing.)
-Replicates(d) == \E k \in 1..Len(d.tasks) : Len(d.tasks[k].nodes) > 0
-Quiet(hs) == \A n \in hs : LET d == Decide27(n, hs, {}, {}) IN ~Replicates(d) /\ d.del = "none"
-NoTasks(hs) == \A n \in hs : ~Replicates(Decide27(n, hs, {}, {}))
-a\* a check "replicates" when it hands the replicator a task with at least one candidate node. (With overlapping
-\* rules the code as found keeps calling the replicator with an EMPTY candidate list: a holder remembered from
-\* an earlier rule does not lower the shortage of a later rule - a phantom shortage that copies nothing.)
-Replicates(d) == \E k \in 1..Len(d.tasks) : Len(d.tasks[k].nodes) > 0
-Quiet(hs) == \A n \in hs : LET d == Decide27(n, hs, {}, {}) IN ~Replicates(d) /\ d.del = "none"
-NoTasks(hs) == \A n \in hs : ~Replicates(Decide27(n, hs, {}, {}))
-n\* a check "replicates" when it hands the replicator a task with at least one candidate node. (With overlapping
-\* rules the code as found keeps calling the replicator with an EMPTY candidate list: a holder remembered from
-\* an earlier rule does not lower the shortage of a later rule - a phantom shortage that copies nothing.)
-Replicates(d) == \E k \in 1..Len(d.tasks) : Len(d.tasks[k].nodes) > 0
-Quiet(hs) == \A n \in hs : LET d == Decide27(n, hs, {}, {}) IN ~Replicates(d) /\ d.del = "none"
-NoTasks(hs) == \A n \in hs : ~Replicates(Decide27(n, hs, {}, {}))
-,\* a check "replicates" when it hands the replicator a task with at least one candidate node. (With overlapping
-\* rules the code as found keeps calling the replicator with an EMPTY candidate list: a holder remembered from
-\* an earlier rule does not lower the shortage of a later rule - a phantom shortage that copies nothing.)
-Replicates(d) == \E k \in 1..Len(d.tasks) : Len(d.tasks[k].nodes) > 0
-Quiet(hs) == \A n \in hs : LET d == Decide27(n, hs, {}, {}) IN ~Replicates(d) /\ d.del = "none"
-NoTasks(hs) == \A n \in hs : ~Replicates(Decide27(n, hs, {}, {}))
- \* a check "replicates" when it hands the replicator a task with at least one candidate node. (With overlapping
-\* rules the code as found keeps calling the replicator with an EMPTY candidate list: a holder remembered from
-\* an earlier rule does not lower the shortage of a later rule - a phantom shortage that copies nothing.)
-Replicates(d) == \E k \in 1..Len(d.tasks) : Len(d.tasks[k].nodes) > 0
-Quiet(hs) == \A n \in hs : LET d == Decide27(n, hs, {}, {}) IN ~Replicates(d) /\ d.del = "none"
-NoTasks(hs) == \A n \in hs : ~Replicates(Decide27(n, hs, {}, {}))
-r\* a check "replicates" when it hands the replicator a task with at least one candidate node. (With overlapping
-\* rules the code as found keeps calling the replicator with an EMPTY candidate list: a holder remembered from
-\* an earlier rule does not lower the shortage of a later rule - a phantom shortage that copies nothing.)
-Replicates(d) == \E k \in 1..Len(d.tasks) : Len(d.tasks[k].nodes) > 0
-Quiet(hs) == \A n \in hs : LET d == Decide27(n, hs, {}, {}) IN ~Replicates(d) /\ d.del = "none"
-NoTasks(hs) == \A n \in hs : ~Replicates(Decide27(n, hs, {}, {}))
-o\* a check "replicates" when it hands the replicator a task with at least one candidate node. (With overlapping
-\* rules the code as found keeps calling the replicator with an EMPTY candidate list: a holder remembered from
-\* an earlier rule does not lower the shortage of a later rule - a phantom shortage that copies nothing.)
-Replicates(d) == \E k \in 1..Len(d.tasks) : Len(d.tasks[k].nodes) > 0
-Quiet(hs) == \A n \in hs : LET d == Decide27(n, hs, {}, {}) IN ~Replicates(d) /\ d.del = "none"
-NoTasks(hs) == \A n \in hs : ~Replicates(Decide27(n, hs, {}, {}))
-u\* a check "replicates" when it hands the replicator a task with at least one candidate node. (With overlapping
-\* rules the code as found keeps calling the replicator with an EMPTY candidate list: a holder remembered from
-\* an earlier rule does not lower the shortage of a later rule - a phantom shortage that copies nothing.)
-Replicates(d) == \E k \in 1..Len(d.tasks) : Len(d.tasks[k].nodes) > 0
-Quiet(hs) == \A n \in hs : LET d == Decide27(n, hs, {}, {}) IN ~Replicates(d) /\ d.del = "none"
-NoTasks(hs) == \A n \in hs : ~Replicates(Decide27(n, hs, {}, {}))
-n\* a check "replicates" when it hands the replicator a task with at least one candidate node. (With overlapping
-\* rules the code as found keeps calling the replicator with an EMPTY candidate list: a holder remembered from
-\* an earlier rule does not lower the shortage of a later rule - a phantom shortage that copies nothing.)
-Replicates(d) == \E k \in 1..Len(d.tasks) : Len(d.tasks[k].nodes) > 0
-Quiet(hs) == \A n \in hs : LET d == Decide27(n, hs, {}, {}) IN ~Replicates(d) /\ d.del = "none"
-NoTasks(hs) == \A n \in hs : ~Replicates(Decide27(n, hs, {}, {}))
-d\* a check "replicates" when it hands the replicator a task with at least one candidate node. (With overlapping
-\* rules the code as found keeps calling the replicator with an EMPTY candidate list: a holder remembered from
-\* an earlier rule does not lower the shortage of a later rule - a phantom shortage that copies nothing.)
-Replicates(d) == \E k \in 1..Len(d.tasks) : Len(d.tasks[k].nodes) > 0
-Quiet(hs) == \A n \in hs : LET d == Decide27(n, hs, {}, {}) IN ~Replicates(d) /\ d.del = "none"
-NoTasks(hs) == \A n \in hs : ~Replicates(Decide27(n, hs, {}, {}))
-,\* a check "replicates" when it hands the replicator a task with at least one candidate node. (With overlapping
-\* rules the code as found keeps calling the replicator with an EMPTY candidate list: a holder remembered from
-\* an earlier rule does not lower the shortage of a later rule - a phantom shortage that copies nothing.)
-Replicates(d) == \E k \in 1..Len(d.tasks) : Len(d.tasks[k].nodes) > 0
-Quiet(hs) == \A n \in hs : LET d == Decide27(n, hs, {}, {}) IN ~Replicates(d) /\ d.del = "none"
-NoTasks(hs) == \A n \in hs : ~Replicates(Decide27(n, hs, {}, {}))
- \* a check "replicates" when it hands the replicator a task with at least one candidate node. (With overlapping
-\* rules the code as found keeps calling the replicator with an EMPTY candidate list: a holder remembered from
-\* an earlier rule does not lower the shortage of a later rule - a phantom shortage that copies nothing.)
-Replicates(d) == \E k \in 1..Len(d.tasks) : Len(d.tasks[k].nodes) > 0
-Quiet(hs) == \A n \in hs : LET d == Decide27(n, hs, {}, {}) IN ~Replicates(d) /\ d.del = "none"
-NoTasks(hs) == \A n \in hs : ~Replicates(Decide27(n, hs, {}, {}))
- \* a check "replicates" when it hands the replicator a task with at least one candidate node. (With overlapping
-\* rules the code as found keeps calling the replicator with an EMPTY candidate list: a holder remembered from
-\* an earlier rule does not lower the shortage of a later rule - a phantom shortage that copies nothing.)
-Replicates(d) == \E k \in 1..Len(d.tasks) : Len(d.tasks[k].nodes) > 0
-Quiet(hs) == \A n \in hs : LET d == Decide27(n, hs, {}, {}) IN ~Replicates(d) /\ d.del = "none"
-NoTasks(hs) == \A n \in hs : ~Replicates(Decide27(n, hs, {}, {}))
- \* a check "replicates" when it hands the replicator a task with at least one candidate node. (With overlapping
-\* rules the code as found keeps calling the replicator with an EMPTY candidate list: a holder remembered from
-\* an earlier rule does not lower the shortage of a later rule - a phantom shortage that copies nothing.)
-Replicates(d) == \E k \in 1..Len(d.tasks) : Len(d.tasks[k].nodes) > 0
-Quiet(hs) == \A n \in hs : LET d == Decide27(n, hs, {}, {}) IN ~Replicates(d) /\ d.del = "none"
-NoTasks(hs) == \A n \in hs : ~Replicates(Decide27(n, hs, {}, {}))
- \* a check "replicates" when it hands the replicator a task with at least one candidate node. (With overlapping
-\* rules the code as found keeps calling the replicator with an EMPTY candidate list: a holder remembered from
-\* an earlier rule does not lower the shortage of a later rule - a phantom shortage that copies nothing.)
-Replicates(d) == \E k \in 1..Len(d.tasks) : Len(d.tasks[k].nodes) > 0
-Quiet(hs) == \A n \in hs : LET d == Decide27(n, hs, {}, {}) IN ~Replicates(d) /\ d.del = "none"
-NoTasks(hs) == \A n \in hs : ~Replicates(Decide27(n, hs, {}, {}))
- \* a check "replicates" when it hands the replicator a task with at least one candidate node. (With overlapping
-\* rules the code as found keeps calling the replicator with an EMPTY candidate list: a holder remembered from
-\* an earlier rule does not lower the shortage of a later rule - a phantom shortage that copies nothing.)
-Replicates(d) == \E k \in 1..Len(d.tasks) : Len(d.tasks[k].nodes) > 0
-Quiet(hs) == \A n \in hs : LET d == Decide27(n, hs, {}, {}) IN ~Replicates(d) /\ d.del = "none"
-NoTasks(hs) == \A n \in hs : ~Replicates(Decide27(n, hs, {}, {}))
- \* a check "replicates" when it hands the replicator a task with at least one candidate node. (With overlapping
-\* rules the code as found keeps calling the replicator with an EMPTY candidate list: a holder remembered from
-\* an earlier rule does not lower the shortage of a later rule - a phantom shortage that copies nothing.)
-Replicates(d) == \E k \in 1..Len(d.tasks) : Len(d.tasks[k].nodes) > 0
-Quiet(hs) == \A n \in hs : LET d == Decide27(n, hs, {}, {}) IN ~Replicates(d) /\ d.del = "none"
-NoTasks(hs) == \A n \in hs : ~Replicates(Decide27(n, hs, {}, {}))
- \* a check "replicates" when it hands the replicator a task with at least one candidate node. (With overlapping
-\* rules the code as found keeps calling the replicator with an EMPTY candidate list: a holder remembered from
-\* an earlier rule does not lower the shortage of a later rule - a phantom shortage that copies nothing.)
-Replicates(d) == \E k \in 1..Len(d.tasks) : Len(d.tasks[k].nodes) > 0
-Quiet(hs) == \A n \in hs : LET d == Decide27(n, hs, {}, {}) IN ~Replicates(d) /\ d.del = "none"
-NoTasks(hs) == \A n \in hs : ~Replicates(Decide27(n, hs, {}, {}))
-\\* a check "replicates" when it hands the replicator a task with at least one candidate node. (With overlapping
-\* rules the code as found keeps calling the replicator with an EMPTY candidate list: a holder remembered from
-\* an earlier rule does not lower the shortage of a later rule - a phantom shortage that copies nothing.)
-Replicates(d) == \E k \in 1..Len(d.tasks) : Len(d.tasks[k].nodes) > 0
-Quiet(hs) == \A n \in hs : LET d == Decide27(n, hs, {}, {}) IN ~Replicates(d) /\ d.del = "none"
-NoTasks(hs) == \A n \in hs : ~Replicates(Decide27(n, hs, {}, {}))
-*\* a check "replicates" when it hands the replicator a task with at least one candidate node. (With overlapping
-\* rules the code as found keeps calling the replicator with an EMPTY candidate list: a holder remembered from
-\* an earlier rule does not lower the shortage of a later rule - a phantom shortage that copies nothing.)
-Replicates(d) == \E k \in 1..Len(d.tasks) : Len(d.tasks[k].nodes) > 0
-Quiet(hs) == \A n \in hs : LET d == Decide27(n, hs, {}, {}) IN ~Replicates(d) /\ d.del = "none"
-NoTasks(hs) == \A n \in hs : ~Replicates(Decide27(n, hs, {}, {}))
- \* a check "replicates" when it hands the replicator a task with at least one candidate node. (With overlapping
-\* rules the code as found keeps calling the replicator with an EMPTY candidate list: a holder remembered from
-\* an earlier rule does not lower the shortage of a later rule - a phantom shortage that copies nothing.)
-Replicates(d) == \E k \in 1..Len(d.tasks) : Len(d.tasks[k].nodes) > 0
-Quiet(hs) == \A n \in hs : LET d == Decide27(n, hs, {}, {}) IN ~Replicates(d) /\ d.del = "none"
-NoTasks(hs) == \A n \in hs : ~Replicates(Decide27(n, hs, {}, {}))
-r\* a check "replicates" when it hands the replicator a task with at least one candidate node. (With overlapping
-\* rules the code as found keeps calling the replicator with an EMPTY candidate list: a holder remembered from
-\* an earlier rule does not lower the shortage of a later rule - a phantom shortage that copies nothing.)
-Replicates(d) == \E k \in 1..Len(d.tasks) : Len(d.tasks[k].nodes) > 0
-Quiet(hs) == \A n \in hs : LET d == Decide27(n, hs, {}, {}) IN ~Replicates(d) /\ d.del = "none"
-NoTasks(hs) == \A n \in hs : ~Replicates(Decide27(n, hs, {}, {}))
-o\* a check "replicates" when it hands the replicator a task with at least one candidate node. (With overlapping
-\* rules the code as found keeps calling the replicator with an EMPTY candidate list: a holder remembered from
-\* an earlier rule does not lower the shortage of a later rule - a phantom shortage that copies nothing.)
-Replicates(d) == \E k \in 1..Len(d.tasks) : Len(d.tasks[k].nodes) > 0
-Quiet(hs) == \A n \in hs : LET d == Decide27(n, hs, {}, {}) IN ~Replicates(d) /\ d.del = "none"
-NoTasks(hs) == \A n \in hs : ~Replicates(Decide27(n, hs, {}, {}))
-u\* a check "replicates" when it hands the replicator a task with at least one candidate node. (With overlapping
-\* rules the code as found keeps calling the replicator with an EMPTY candidate list: a holder remembered from
-\* an earlier rule does not lower the shortage of a later rule - a phantom shortage that copies nothing.)
-Replicates(d) == \E k \in 1..Len(d.tasks) : Len(d.tasks[k].nodes) > 0
-Quiet(hs) == \A n \in hs : LET d == Decide27(n, hs, {}, {}) IN ~Replicates(d) /\ d.del = "none"
-NoTasks(hs) == \A n \in hs : ~Replicates(Decide27(n, hs, {}, {}))
-n\* a check "replicates" when it hands the replicator a task with at least one candidate node. (With overlapping
-\* rules the code as found keeps calling the replicator with an EMPTY candidate list: a holder remembered from
-\* an earlier rule does not lower the shortage of a later rule - a phantom shortage that copies nothing.)
-Replicates(d) == \E k \in 1..Len(d.tasks) : Len(d.tasks[k].nodes) > 0
-Quiet(hs) == \A n \in hs : LET d == Decide27(n, hs, {}, {}) IN ~Replicates(d) /\ d.del = "none"
-NoTasks(hs) == \A n \in hs : ~Replicates(Decide27(n, hs, {}, {}))
-d\* a check "replicates" when it hands the replicator a task with at least one candidate node. (With overlapping
-\* rules the code as found keeps calling the replicator with an EMPTY candidate list: a holder remembered from
-\* an earlier rule does not lower the shortage of a later rule - a phantom shortage that copies nothing.)
-Replicates(d) == \E k \in 1..Len(d.tasks) : Len(d.tasks[k].nodes) > 0
-Quiet(hs) == \A n \in hs : LET d == Decide27(n, hs, {}, {}) IN ~Replicates(d) /\ d.del = "none"
-NoTasks(hs) == \A n \in hs : ~Replicates(Decide27(n, hs, {}, {}))
- \* a check "replicates" when it hands the replicator a task with at least one candidate node. (With overlapping
-\* rules the code as found keeps calling the replicator with an EMPTY candidate list: a holder remembered from
-\* an earlier rule does not lower the shortage of a later rule - a phantom shortage that copies nothing.)
-Replicates(d) == \E k \in 1..Len(d.tasks) : Len(d.tasks[k].nodes) > 0
-Quiet(hs) == \A n \in hs : LET d == Decide27(n, hs, {}, {}) IN ~Replicates(d) /\ d.del = "none"
-NoTasks(hs) == \A n \in hs : ~Replicates(Decide27(n, hs, {}, {}))
-b\* a check "replicates" when it hands the replicator a task with at least one candidate node. (With overlapping
-\* rules the code as found keeps calling the replicator with an EMPTY candidate list: a holder remembered from
-\* an earlier rule does not lower the shortage of a later rule - a phantom shortage that copies nothing.)
-Replicates(d) == \E k \in 1..Len(d.tasks) : Len(d.tasks[k].nodes) > 0
-Quiet(hs) == \A n \in hs : LET d == Decide27(n, hs, {}, {}) IN ~Replicates(d) /\ d.del = "none"
-NoTasks(hs) == \A n \in hs : ~Replicates(Decide27(n, hs, {}, {}))
-o\* a check "replicates" when it hands the replicator a task with at least one candidate node. (With overlapping
-\* rules the code as found keeps calling the replicator with an EMPTY candidate list: a holder remembered from
-\* an earlier rule does not lower the shortage of a later rule - a phantom shortage that copies nothing.)
-Replicates(d) == \E k \in 1..Len(d.tasks) : Len(d.tasks[k].nodes) > 0
-Quiet(hs) == \A n \in hs : LET d == Decide27(n, hs, {}, {}) IN ~Replicates(d) /\ d.del = "none"
-NoTasks(hs) == \A n \in hs : ~Replicates(Decide27(n, hs, {}, {}))
-o\* a check "replicates" when it hands the replicator a task with at least one candidate node. (With overlapping
-\* rules the code as found keeps calling the replicator with an EMPTY candidate list: a holder remembered from
-\* an earlier rule does not lower the shortage of a later rule - a phantom shortage that copies nothing.)
-Replicates(d) == \E k \in 1..Len(d.tasks) : Len(d.tasks[k].nodes) > 0
-Quiet(hs) == \A n \in hs : LET d == Decide27(n, hs, {}, {}) IN ~Replicates(d) /\ d.del = "none"
-NoTasks(hs) == \A n \in hs : ~Replicates(Decide27(n, hs, {}, {}))
-k\* a check "replicates" when it hands the replicator a task with at least one candidate node. (With overlapping
-\* rules the code as found keeps calling the replicator with an EMPTY candidate list: a holder remembered from
-\* an earlier rule does not lower the shortage of a later rule - a phantom shortage that copies nothing.)
-Replicates(d) == \E k \in 1..Len(d.tasks) : Len(d.tasks[k].nodes) > 0
-Quiet(hs) == \A n \in hs : LET d == Decide27(n, hs, {}, {}) IN ~Replicates(d) /\ d.del = "none"
-NoTasks(hs) == \A n \in hs : ~Replicates(Decide27(n, hs, {}, {}))
-k\* a check "replicates" when it hands the replicator a task with at least one candidate node. (With overlapping
-\* rules the code as found keeps calling the replicator with an EMPTY candidate list: a holder remembered from
-\* an earlier rule does not lower the shortage of a later rule - a phantom shortage that copies nothing.)
-Replicates(d) == \E k \in 1..Len(d.tasks) : Len(d.tasks[k].nodes) > 0
-Quiet(hs) == \A n \in hs : LET d == Decide27(n, hs, {}, {}) IN ~Replicates(d) /\ d.del = "none"
-NoTasks(hs) == \A n \in hs : ~Replicates(Decide27(n, hs, {}, {}))
-e\* a check "replicates" when it hands the replicator a task with at least one candidate node. (With overlapping
-\* rules the code as found keeps calling the replicator with an EMPTY candidate list: a holder remembered from
-\* an earlier rule does not lower the shortage of a later rule - a phantom shortage that copies nothing.)
-Replicates(d) == \E k \in 1..Len(d.tasks) : Len(d.tasks[k].nodes) > 0
-Quiet(hs) == \A n \in hs : LET d == Decide27(n, hs, {}, {}) IN ~Replicates(d) /\ d.del = "none"
-NoTasks(hs) == \A n \in hs : ~Replicates(Decide27(n, hs, {}, {}))
-e\* a check "replicates" when it hands the replicator a task with at least one candidate node. (With overlapping
-\* rules the code as found keeps calling the replicator with an EMPTY candidate list: a holder remembered from
-\* an earlier rule does not lower the shortage of a later rule - a phantom shortage that copies nothing.)
-Replicates(d) == \E k \in 1..Len(d.tasks) : Len(d.tasks[k].nodes) > 0
-Quiet(hs) == \A n \in hs : LET d == Decide27(n, hs, {}, {}) IN ~Replicates(d) /\ d.del = "none"
-NoTasks(hs) == \A n \in hs : ~Replicates(Decide27(n, hs, {}, {}))
-p\* a check "replicates" when it hands the replicator a task with at least one candidate node. (With overlapping
-\* rules the code as found keeps calling the replicator with an EMPTY candidate list: a holder remembered from
-\* an earlier rule does not lower the shortage of a later rule - a phantom shortage that copies nothing.)
-Replicates(d) == \E k \in 1..Len(d.tasks) : Len(d.tasks[k].nodes) > 0
-Quiet(hs) == \A n \in hs : LET d == Decide27(n, hs, {}, {}) IN ~Replicates(d) /\ d.del = "none"
-NoTasks(hs) == \A n \in hs : ~Replicates(Decide27(n, hs, {}, {}))
-i\* a check "replicates" when it hands the replicator a task with at least one candidate node. (With overlapping
-\* rules the code as found keeps calling the replicator with an EMPTY candidate list: a holder remembered from
-\* an earlier rule does not lower the shortage of a later rule - a phantom shortage that copies nothing.)
-Replicates(d) == \E k \in 1..Len(d.tasks) : Len(d.tasks[k].nodes) > 0
-Quiet(hs) == \A n \in hs : LET d == Decide27(n, hs, {}, {}) IN ~Replicates(d) /\ d.del = "none"
-NoTasks(hs) == \A n \in hs : ~Replicates(Decide27(n, hs, {}, {}))
-n\* a check "replicates" when it hands the replicator a task with at least one candidate node. (With overlapping
-\* rules the code as found keeps calling the replicator with an EMPTY candidate list: a holder remembered from
-\* an earlier rule does not lower the shortage of a later rule - a phantom shortage that copies nothing.)
-Replicates(d) == \E k \in 1..Len(d.tasks) : Len(d.tasks[k].nodes) > 0
-Quiet(hs) == \A n \in hs : LET d == Decide27(n, hs, {}, {}) IN ~Replicates(d) /\ d.del = "none"
-NoTasks(hs) == \A n \in hs : ~Replicates(Decide27(n, hs, {}, {}))
-g\* a check "replicates" when it hands the replicator a task with at least one candidate node. (With overlapping
-\* rules the code as found keeps calling the replicator with an EMPTY candidate list: a holder remembered from
-\* an earlier rule does not lower the shortage of a later rule - a phantom shortage that copies nothing.)
-Replicates(d) == \E k \in 1..Len(d.tasks) : Len(d.tasks[k].nodes) > 0
-Quiet(hs) == \A n \in hs : LET d == Decide27(n, hs, {}, {}) IN ~Replicates(d) /\ d.del = "none"
-NoTasks(hs) == \A n \in hs : ~Replicates(Decide27(n, hs, {}, {}))
- \* a check "replicates" when it hands the replicator a task with at least one candidate node. (With overlapping
-\* rules the code as found keeps calling the replicator with an EMPTY candidate list: a holder remembered from
-\* an earlier rule does not lower the shortage of a later rule - a phantom shortage that copies nothing.)
-Replicates(d) == \E k \in 1..Len(d.tasks) : Len(d.tasks[k].nodes) > 0
-Quiet(hs) == \A n \in hs : LET d == Decide27(n, hs, {}, {}) IN ~Replicates(d) /\ d.del = "none"
-NoTasks(hs) == \A n \in hs : ~Replicates(Decide27(n, hs, {}, {}))
-f\* a check "replicates" when it hands the replicator a task with at least one candidate node. (With overlapping
-\* rules the code as found keeps calling the replicator with an EMPTY candidate list: a holder remembered from
-\* an earlier rule does not lower the shortage of a later rule - a phantom shortage that copies nothing.)
-Replicates(d) == \E k \in 1..Len(d.tasks) : Len(d.tasks[k].nodes) > 0
-Quiet(hs) == \A n \in hs : LET d == Decide27(n, hs, {}, {}) IN ~Replicates(d) /\ d.del = "none"
-NoTasks(hs) == \A n \in hs : ~Replicates(Decide27(n, hs, {}, {}))
-o\* a check "replicates" when it hands the replicator a task with at least one candidate node. (With overlapping
-\* rules the code as found keeps calling the replicator with an EMPTY candidate list: a holder remembered from
-\* an earlier rule does not lower the shortage of a later rule - a phantom shortage that copies nothing.)
-Replicates(d) == \E k \in 1..Len(d.tasks) : Len(d.tasks[k].nodes) > 0
-Quiet(hs) == \A n \in hs : LET d == Decide27(n, hs, {}, {}) IN ~Replicates(d) /\ d.del = "none"
-NoTasks(hs) == \A n \in hs : ~Replicates(Decide27(n, hs, {}, {}))
-r\* a check "replicates" when it hands the replicator a task with at least one candidate node. (With overlapping
-\* rules the code as found keeps calling the replicator with an EMPTY candidate list: a holder remembered from
-\* an earlier rule does not lower the shortage of a later rule - a phantom shortage that copies nothing.)
-Replicates(d) == \E k \in 1..Len(d.tasks) : Len(d.tasks[k].nodes) > 0
-Quiet(hs) == \A n \in hs : LET d == Decide27(n, hs, {}, {}) IN ~Replicates(d) /\ d.del = "none"
-NoTasks(hs) == \A n \in hs : ~Replicates(Decide27(n, hs, {}, {}))
- \* a check "replicates" when it hands the replicator a task with at least one candidate node. (With overlapping
-\* rules the code as found keeps calling the replicator with an EMPTY candidate list: a holder remembered from
-\* an earlier rule does not lower the shortage of a later rule - a phantom shortage that copies nothing.)
-Replicates(d) == \E k \in 1..Len(d.tasks) : Len(d.tasks[k].nodes) > 0
-Quiet(hs) == \A n \in hs : LET d == Decide27(n, hs, {}, {}) IN ~Replicates(d) /\ d.del = "none"
-NoTasks(hs) == \A n \in hs : ~Replicates(Decide27(n, hs, {}, {}))
-t\* a check "replicates" when it hands the replicator a task with at least one candidate node. (With overlapping
-\* rules the code as found keeps calling the replicator with an EMPTY candidate list: a holder remembered from
-\* an earlier rule does not lower the shortage of a later rule - a phantom shortage that copies nothing.)
-Replicates(d) == \E k \in 1..Len(d.tasks) : Len(d.tasks[k].nodes) > 0
-Quiet(hs) == \A n \in hs : LET d == Decide27(n, hs, {}, {}) IN ~Replicates(d) /\ d.del = "none"
-NoTasks(hs) == \A n \in hs : ~Replicates(Decide27(n, hs, {}, {}))
-h\* a check "replicates" when it hands the replicator a task with at least one candidate node. (With overlapping
-\* rules the code as found keeps calling the replicator with an EMPTY candidate list: a holder remembered from
-\* an earlier rule does not lower the shortage of a later rule - a phantom shortage that copies nothing.)
-Replicates(d) == \E k \in 1..Len(d.tasks) : Len(d.tasks[k].nodes) > 0
-Quiet(hs) == \A n \in hs : LET d == Decide27(n, hs, {}, {}) IN ~Replicates(d) /\ d.del = "none"
-NoTasks(hs) == \A n \in hs : ~Replicates(Decide27(n, hs, {}, {}))
-e\* a check "replicates" when it hands the replicator a task with at least one candidate node. (With overlapping
-\* rules the code as found keeps calling the replicator with an EMPTY candidate list: a holder remembered from
-\* an earlier rule does not lower the shortage of a later rule - a phantom shortage that copies nothing.)
-Replicates(d) == \E k \in 1..Len(d.tasks) : Len(d.tasks[k].nodes) > 0
-Quiet(hs) == \A n \in hs : LET d == Decide27(n, hs, {}, {}) IN ~Replicates(d) /\ d.del = "none"
-NoTasks(hs) == \A n \in hs : ~Replicates(Decide27(n, hs, {}, {}))
- \* a check "replicates" when it hands the replicator a task with at least one candidate node. (With overlapping
-\* rules the code as found keeps calling the replicator with an EMPTY candidate list: a holder remembered from
-\* an earlier rule does not lower the shortage of a later rule - a phantom shortage that copies nothing.)
-Replicates(d) == \E k \in 1..Len(d.tasks) : Len(d.tasks[k].nodes) > 0
-Quiet(hs) == \A n \in hs : LET d == Decide27(n, hs, {}, {}) IN ~Replicates(d) /\ d.del = "none"
-NoTasks(hs) == \A n \in hs : ~Replicates(Decide27(n, hs, {}, {}))
-b\* a check "replicates" when it hands the replicator a task with at least one candidate node. (With overlapping
-\* rules the code as found keeps calling the replicator with an EMPTY candidate list: a holder remembered from
-\* an earlier rule does not lower the shortage of a later rule - a phantom shortage that copies nothing.)
-Replicates(d) == \E k \in 1..Len(d.tasks) : Len(d.tasks[k].nodes) > 0
-Quiet(hs) == \A n \in hs : LET d == Decide27(n, hs, {}, {}) IN ~Replicates(d) /\ d.del = "none"
-NoTasks(hs) == \A n \in hs : ~Replicates(Decide27(n, hs, {}, {}))
-o\* a check "replicates" when it hands the replicator a task with at least one candidate node. (With overlapping
-\* rules the code as found keeps calling the replicator with an EMPTY candidate list: a holder remembered from
-\* an earlier rule does not lower the shortage of a later rule - a phantom shortage that copies nothing.)
-Replicates(d) == \E k \in 1..Len(d.tasks) : Len(d.tasks[k].nodes) > 0
-Quiet(hs) == \A n \in hs : LET d == Decide27(n, hs, {}, {}) IN ~Replicates(d) /\ d.del = "none"
-NoTasks(hs) == \A n \in hs : ~Replicates(Decide27(n, hs, {}, {}))
-u\* a check "replicates" when it hands the replicator a task with at least one candidate node. (With overlapping
-\* rules the code as found keeps calling the replicator with an EMPTY candidate list: a holder remembered from
-\* an earlier rule does not lower the shortage of a later rule - a phantom shortage that copies nothing.)
-Replicates(d) == \E k \in 1..Len(d.tasks) : Len(d.tasks[k].nodes) > 0
-Quiet(hs) == \A n \in hs : LET d == Decide27(n, hs, {}, {}) IN ~Replicates(d) /\ d.del = "none"
-NoTasks(hs) == \A n \in hs : ~Replicates(Decide27(n, hs, {}, {}))
-n\* a check "replicates" when it hands the replicator a task with at least one candidate node. (With overlapping
-\* rules the code as found keeps calling the replicator with an EMPTY candidate list: a holder remembered from
-\* an earlier rule does not lower the shortage of a later rule - a phantom shortage that copies nothing.)
-Replicates(d) == \E k \in 1..Len(d.tasks) : Len(d.tasks[k].nodes) > 0
-Quiet(hs) == \A n \in hs : LET d == Decide27(n, hs, {}, {}) IN ~Replicates(d) /\ d.del = "none"
-NoTasks(hs) == \A n \in hs : ~Replicates(Decide27(n, hs, {}, {}))
-d\* a check "replicates" when it hands the replicator a task with at least one candidate node. (With overlapping
-\* rules the code as found keeps calling the replicator with an EMPTY candidate list: a holder remembered from
-\* an earlier rule does not lower the shortage of a later rule - a phantom shortage that copies nothing.)
-Replicates(d) == \E k \in 1..Len(d.tasks) : Len(d.tasks[k].nodes) > 0
-Quiet(hs) == \A n \in hs : LET d == Decide27(n, hs, {}, {}) IN ~Replicates(d) /\ d.del = "none"
-NoTasks(hs) == \A n \in hs : ~Replicates(Decide27(n, hs, {}, {}))
-e\* a check "replicates" when it hands the replicator a task with at least one candidate node. (With overlapping
-\* rules the code as found keeps calling the replicator with an EMPTY candidate list: a holder remembered from
-\* an earlier rule does not lower the shortage of a later rule - a phantom shortage that copies nothing.)
-Replicates(d) == \E k \in 1..Len(d.tasks) : Len(d.tasks[k].nodes) > 0
-Quiet(hs) == \A n \in hs : LET d == Decide27(n, hs, {}, {}) IN ~Replicates(d) /\ d.del = "none"
-NoTasks(hs) == \A n \in hs : ~Replicates(Decide27(n, hs, {}, {}))
-d\* a check "replicates" when it hands the replicator a task with at least one candidate node. (With overlapping
-\* rules the code as found keeps calling the replicator with an EMPTY candidate list: a holder remembered from
-\* an earlier rule does not lower the shortage of a later rule - a phantom shortage that copies nothing.)
-Replicates(d) == \E k \in 1..Len(d.tasks) : Len(d.tasks[k].nodes) > 0
-Quiet(hs) == \A n \in hs : LET d == Decide27(n, hs, {}, {}) IN ~Replicates(d) /\ d.del = "none"
-NoTasks(hs) == \A n \in hs : ~Replicates(Decide27(n, hs, {}, {}))
- \* a check "replicates" when it hands the replicator a task with at least one candidate node. (With overlapping
-\* rules the code as found keeps calling the replicator with an EMPTY candidate list: a holder remembered from
-\* an earlier rule does not lower the shortage of a later rule - a phantom shortage that copies nothing.)
-Replicates(d) == \E k \in 1..Len(d.tasks) : Len(d.tasks[k].nodes) > 0
-Quiet(hs) == \A n \in hs : LET d == Decide27(n, hs, {}, {}) IN ~Replicates(d) /\ d.del = "none"
-NoTasks(hs) == \A n \in hs : ~Replicates(Decide27(n, hs, {}, {}))
-f\* a check "replicates" when it hands the replicator a task with at least one candidate node. (With overlapping
-\* rules the code as found keeps calling the replicator with an EMPTY candidate list: a holder remembered from
-\* an earlier rule does not lower the shortage of a later rule - a phantom shortage that copies nothing.)
-Replicates(d) == \E k \in 1..Len(d.tasks) : Len(d.tasks[k].nodes) > 0
-Quiet(hs) == \A n \in hs : LET d == Decide27(n, hs, {}, {}) IN ~Replicates(d) /\ d.del = "none"
-NoTasks(hs) == \A n \in hs : ~Replicates(Decide27(n, hs, {}, {}))
-o\* a check "replicates" when it hands the replicator a task with at least one candidate node. (With overlapping
-\* rules the code as found keeps calling the replicator with an EMPTY candidate list: a holder remembered from
-\* an earlier rule does not lower the shortage of a later rule - a phantom shortage that copies nothing.)
-Replicates(d) == \E k \in 1..Len(d.tasks) : Len(d.tasks[k].nodes) > 0
-Quiet(hs) == \A n \in hs : LET d == Decide27(n, hs, {}, {}) IN ~Replicates(d) /\ d.del = "none"
-NoTasks(hs) == \A n \in hs : ~Replicates(Decide27(n, hs, {}, {}))
-r\* a check "replicates" when it hands the replicator a task with at least one candidate node. (With overlapping
-\* rules the code as found keeps calling the replicator with an EMPTY candidate list: a holder remembered from
-\* an earlier rule does not lower the shortage of a later rule - a phantom shortage that copies nothing.)
-Replicates(d) == \E k \in 1..Len(d.tasks) : Len(d.tasks[k].nodes) > 0
-Quiet(hs) == \A n \in hs : LET d == Decide27(n, hs, {}, {}) IN ~Replicates(d) /\ d.del = "none"
-NoTasks(hs) == \A n \in hs : ~Replicates(Decide27(n, hs, {}, {}))
-m\* a check "replicates" when it hands the replicator a task with at least one candidate node. (With overlapping
-\* rules the code as found keeps calling the replicator with an EMPTY candidate list: a holder remembered from
-\* an earlier rule does not lower the shortage of a later rule - a phantom shortage that copies nothing.)
-Replicates(d) == \E k \in 1..Len(d.tasks) : Len(d.tasks[k].nodes) > 0
-Quiet(hs) == \A n \in hs : LET d == Decide27(n, hs, {}, {}) IN ~Replicates(d) /\ d.del = "none"
-NoTasks(hs) == \A n \in hs : ~Replicates(Decide27(n, hs, {}, {}))
-
-\* a check "replicates" when it hands the replicator a task with at least one candidate node. (With overlapping
-\* rules the code as found keeps calling the replicator with an EMPTY candidate list: a holder remembered from
-\* an earlier rule does not lower the shortage of a later rule - a phantom shortage that copies nothing.)
-Replicates(d) == \E k \in 1..Len(d.tasks) : Len(d.tasks[k].nodes) > 0
-Quiet(hs) == \A n \in hs : LET d == Decide27(n, hs, {}, {}) IN ~Replicates(d) /\ d.del = "none"
-NoTasks(hs) == \A n \in hs : ~Replicates(Decide27(n, hs, {}, {}))
- \* a check "replicates" when it hands the replicator a task with at least one candidate node. (With overlapping
-\* rules the code as found keeps calling the replicator with an EMPTY candidate list: a holder remembered from
-\* an earlier rule does not lower the shortage of a later rule - a phantom shortage that copies nothing.)
-Replicates(d) == \E k \in 1..Len(d.tasks) : Len(d.tasks[k].nodes) > 0
-Quiet(hs) == \A n \in hs : LET d == Decide27(n, hs, {}, {}) IN ~Replicates(d) /\ d.del = "none"
-NoTasks(hs) == \A n \in hs : ~Replicates(Decide27(n, hs, {}, {}))
- \* a check "replicates" when it hands the replicator a task with at least one candidate node. (With overlapping
-\* rules the code as found keeps calling the replicator with an EMPTY candidate list: a holder remembered from
-\* an earlier rule does not lower the shortage of a later rule - a phantom shortage that copies nothing.)
-Replicates(d) == \E k \in 1..Len(d.tasks) : Len(d.tasks[k].nodes) > 0
-Quiet(hs) == \A n \in hs : LET d == Decide27(n, hs, {}, {}) IN ~Replicates(d) /\ d.del = "none"
-NoTasks(hs) == \A n \in hs : ~Replicates(Decide27(n, hs, {}, {}))
- \* a check "replicates" when it hands the replicator a task with at least one candidate node. (With overlapping
-\* rules the code as found keeps calling the replicator with an EMPTY candidate list: a holder remembered from
-\* an earlier rule does not lower the shortage of a later rule - a phantom shortage that copies nothing.)
-Replicates(d) == \E k \in 1..Len(d.tasks) : Len(d.tasks[k].nodes) > 0
-Quiet(hs) == \A n \in hs : LET d == Decide27(n, hs, {}, {}) IN ~Replicates(d) /\ d.del = "none"
-NoTasks(hs) == \A n \in hs : ~Replicates(Decide27(n, hs, {}, {}))
- \* a check "replicates" when it hands the replicator a task with at least one candidate node. (With overlapping
-\* rules the code as found keeps calling the replicator with an EMPTY candidate list: a holder remembered from
-\* an earlier rule does not lower the shortage of a later rule - a phantom shortage that copies nothing.)
-Replicates(d) == \E k \in 1..Len(d.tasks) : Len(d.tasks[k].nodes) > 0
-Quiet(hs) == \A n \in hs : LET d == Decide27(n, hs, {}, {}) IN ~Replicates(d) /\ d.del = "none"
-NoTasks(hs) == \A n \in hs : ~Replicates(Decide27(n, hs, {}, {}))
- \* a check "replicates" when it hands the replicator a task with at least one candidate node. (With overlapping
-\* rules the code as found keeps calling the replicator with an EMPTY candidate list: a holder remembered from
-\* an earlier rule does not lower the shortage of a later rule - a phantom shortage that copies nothing.)
-Replicates(d) == \E k \in 1..Len(d.tasks) : Len(d.tasks[k].nodes) > 0
-Quiet(hs) == \A n \in hs : LET d == Decide27(n, hs, {}, {}) IN ~Replicates(d) /\ d.del = "none"
-NoTasks(hs) == \A n \in hs : ~Replicates(Decide27(n, hs, {}, {}))
- \* a check "replicates" when it hands the replicator a task with at least one candidate node. (With overlapping
-\* rules the code as found keeps calling the replicator with an EMPTY candidate list: a holder remembered from
-\* an earlier rule does not lower the shortage of a later rule - a phantom shortage that copies nothing.)
-Replicates(d) == \E k \in 1..Len(d.tasks) : Len(d.tasks[k].nodes) > 0
-Quiet(hs) == \A n \in hs : LET d == Decide27(n, hs, {}, {}) IN ~Replicates(d) /\ d.del = "none"
-NoTasks(hs) == \A n \in hs : ~Replicates(Decide27(n, hs, {}, {}))
- \* a check "replicates" when it hands the replicator a task with at least one candidate node. (With overlapping
-\* rules the code as found keeps calling the replicator with an EMPTY candidate list: a holder remembered from
-\* an earlier rule does not lower the shortage of a later rule - a phantom shortage that copies nothing.)
-Replicates(d) == \E k \in 1..Len(d.tasks) : Len(d.tasks[k].nodes) > 0
-Quiet(hs) == \A n \in hs : LET d == Decide27(n, hs, {}, {}) IN ~Replicates(d) /\ d.del = "none"
-NoTasks(hs) == \A n \in hs : ~Replicates(Decide27(n, hs, {}, {}))
- \* a check "replicates" when it hands the replicator a task with at least one candidate node. (With overlapping
-\* rules the code as found keeps calling the replicator with an EMPTY candidate list: a holder remembered from
-\* an earlier rule does not lower the shortage of a later rule - a phantom shortage that copies nothing.)
-Replicates(d) == \E k \in 1..Len(d.tasks) : Len(d.tasks[k].nodes) > 0
-Quiet(hs) == \A n \in hs : LET d == Decide27(n, hs, {}, {}) IN ~Replicates(d) /\ d.del = "none"
-NoTasks(hs) == \A n \in hs : ~Replicates(Decide27(n, hs, {}, {}))
- \* a check "replicates" when it hands the replicator a task with at least one candidate node. (With overlapping
-\* rules the code as found keeps calling the replicator with an EMPTY candidate list: a holder remembered from
-\* an earlier rule does not lower the shortage of a later rule - a phantom shortage that copies nothing.)
-Replicates(d) == \E k \in 1..Len(d.tasks) : Len(d.tasks[k].nodes) > 0
-Quiet(hs) == \A n \in hs : LET d == Decide27(n, hs, {}, {}) IN ~Replicates(d) /\ d.del = "none"
-NoTasks(hs) == \A n \in hs : ~Replicates(Decide27(n, hs, {}, {}))
- \* a check "replicates" when it hands the replicator a task with at least one candidate node. (With overlapping
-\* rules the code as found keeps calling the replicator with an EMPTY candidate list: a holder remembered from
-\* an earlier rule does not lower the shortage of a later rule - a phantom shortage that copies nothing.)
-Replicates(d) == \E k \in 1..Len(d.tasks) : Len(d.tasks[k].nodes) > 0
-Quiet(hs) == \A n \in hs : LET d == Decide27(n, hs, {}, {}) IN ~Replicates(d) /\ d.del = "none"
-NoTasks(hs) == \A n \in hs : ~Replicates(Decide27(n, hs, {}, {}))
-l\* a check "replicates" when it hands the replicator a task with at least one candidate node. (With overlapping
-\* rules the code as found keeps calling the replicator with an EMPTY candidate list: a holder remembered from
-\* an earlier rule does not lower the shortage of a later rule - a phantom shortage that copies nothing.)
-Replicates(d) == \E k \in 1..Len(d.tasks) : Len(d.tasks[k].nodes) > 0
-Quiet(hs) == \A n \in hs : LET d == Decide27(n, hs, {}, {}) IN ~Replicates(d) /\ d.del = "none"
-NoTasks(hs) == \A n \in hs : ~Replicates(Decide27(n, hs, {}, {}))
-a\* a check "replicates" when it hands the replicator a task with at least one candidate node. (With overlapping
-\* rules the code as found keeps calling the replicator with an EMPTY candidate list: a holder remembered from
-\* an earlier rule does not lower the shortage of a later rule - a phantom shortage that copies nothing.)
-Replicates(d) == \E k \in 1..Len(d.tasks) : Len(d.tasks[k].nodes) > 0
-Quiet(hs) == \A n \in hs : LET d == Decide27(n, hs, {}, {}) IN ~Replicates(d) /\ d.del = "none"
-NoTasks(hs) == \A n \in hs : ~Replicates(Decide27(n, hs, {}, {}))
-s\* a check "replicates" when it hands the replicator a task with at least one candidate node. (With overlapping
-\* rules the code as found keeps calling the replicator with an EMPTY candidate list: a holder remembered from
-\* an earlier rule does not lower the shortage of a later rule - a phantom shortage that copies nothing.)
-Replicates(d) == \E k \in 1..Len(d.tasks) : Len(d.tasks[k].nodes) > 0
-Quiet(hs) == \A n \in hs : LET d == Decide27(n, hs, {}, {}) IN ~Replicates(d) /\ d.del = "none"
-NoTasks(hs) == \A n \in hs : ~Replicates(Decide27(n, hs, {}, {}))
-t\* a check "replicates" when it hands the replicator a task with at least one candidate node. (With overlapping
-\* rules the code as found keeps calling the replicator with an EMPTY candidate list: a holder remembered from
-\* an earlier rule does not lower the shortage of a later rule - a phantom shortage that copies nothing.)
-Replicates(d) == \E k \in 1..Len(d.tasks) : Len(d.tasks[k].nodes) > 0
-Quiet(hs) == \A n \in hs : LET d == Decide27(n, hs, {}, {}) IN ~Replicates(d) /\ d.del = "none"
-NoTasks(hs) == \A n \in hs : ~Replicates(Decide27(n, hs, {}, {}))
- \* a check "replicates" when it hands the replicator a task with at least one candidate node. (With overlapping
-\* rules the code as found keeps calling the replicator with an EMPTY candidate list: a holder remembered from
-\* an earlier rule does not lower the shortage of a later rule - a phantom shortage that copies nothing.)
-Replicates(d) == \E k \in 1..Len(d.tasks) : Len(d.tasks[k].nodes) > 0
-Quiet(hs) == \A n \in hs : LET d == Decide27(n, hs, {}, {}) IN ~Replicates(d) /\ d.del = "none"
-NoTasks(hs) == \A n \in hs : ~Replicates(Decide27(n, hs, {}, {}))
- \* a check "replicates" when it hands the replicator a task with at least one candidate node. (With overlapping
-\* rules the code as found keeps calling the replicator with an EMPTY candidate list: a holder remembered from
-\* an earlier rule does not lower the shortage of a later rule - a phantom shortage that copies nothing.)
-Replicates(d) == \E k \in 1..Len(d.tasks) : Len(d.tasks[k].nodes) > 0
-Quiet(hs) == \A n \in hs : LET d == Decide27(n, hs, {}, {}) IN ~Replicates(d) /\ d.del = "none"
-NoTasks(hs) == \A n \in hs : ~Replicates(Decide27(n, hs, {}, {}))
- \* a check "replicates" when it hands the replicator a task with at least one candidate node. (With overlapping
-\* rules the code as found keeps calling the replicator with an EMPTY candidate list: a holder remembered from
-\* an earlier rule does not lower the shortage of a later rule - a phantom shortage that copies nothing.)
-Replicates(d) == \E k \in 1..Len(d.tasks) : Len(d.tasks[k].nodes) > 0
-Quiet(hs) == \A n \in hs : LET d == Decide27(n, hs, {}, {}) IN ~Replicates(d) /\ d.del = "none"
-NoTasks(hs) == \A n \in hs : ~Replicates(Decide27(n, hs, {}, {}))
- \* a check "replicates" when it hands the replicator a task with at least one candidate node. (With overlapping
-\* rules the code as found keeps calling the replicator with an EMPTY candidate list: a holder remembered from
-\* an earlier rule does not lower the shortage of a later rule - a phantom shortage that copies nothing.)
-Replicates(d) == \E k \in 1..Len(d.tasks) : Len(d.tasks[k].nodes) > 0
-Quiet(hs) == \A n \in hs : LET d == Decide27(n, hs, {}, {}) IN ~Replicates(d) /\ d.del = "none"
-NoTasks(hs) == \A n \in hs : ~Replicates(Decide27(n, hs, {}, {}))
- \* a check "replicates" when it hands the replicator a task with at least one candidate node. (With overlapping
-\* rules the code as found keeps calling the replicator with an EMPTY candidate list: a holder remembered from
-\* an earlier rule does not lower the shortage of a later rule - a phantom shortage that copies nothing.)
-Replicates(d) == \E k \in 1..Len(d.tasks) : Len(d.tasks[k].nodes) > 0
-Quiet(hs) == \A n \in hs : LET d == Decide27(n, hs, {}, {}) IN ~Replicates(d) /\ d.del = "none"
-NoTasks(hs) == \A n \in hs : ~Replicates(Decide27(n, hs, {}, {}))
- \* a check "replicates" when it hands the replicator a task with at least one candidate node. (With overlapping
-\* rules the code as found keeps calling the replicator with an EMPTY candidate list: a holder remembered from
-\* an earlier rule does not lower the shortage of a later rule - a phantom shortage that copies nothing.)
-Replicates(d) == \E k \in 1..Len(d.tasks) : Len(d.tasks[k].nodes) > 0
-Quiet(hs) == \A n \in hs : LET d == Decide27(n, hs, {}, {}) IN ~Replicates(d) /\ d.del = "none"
-NoTasks(hs) == \A n \in hs : ~Replicates(Decide27(n, hs, {}, {}))
- \* a check "replicates" when it hands the replicator a task with at least one candidate node. (With overlapping
-\* rules the code as found keeps calling the replicator with an EMPTY candidate list: a holder remembered from
-\* an earlier rule does not lower the shortage of a later rule - a phantom shortage that copies nothing.)
-Replicates(d) == \E k \in 1..Len(d.tasks) : Len(d.tasks[k].nodes) > 0
-Quiet(hs) == \A n \in hs : LET d == Decide27(n, hs, {}, {}) IN ~Replicates(d) /\ d.del = "none"
-NoTasks(hs) == \A n \in hs : ~Replicates(Decide27(n, hs, {}, {}))
- \* a check "replicates" when it hands the replicator a task with at least one candidate node. (With overlapping
-\* rules the code as found keeps calling the replicator with an EMPTY candidate list: a holder remembered from
-\* an earlier rule does not lower the shortage of a later rule - a phantom shortage that copies nothing.)
-Replicates(d) == \E k \in 1..Len(d.tasks) : Len(d.tasks[k].nodes) > 0
-Quiet(hs) == \A n \in hs : LET d == Decide27(n, hs, {}, {}) IN ~Replicates(d) /\ d.del = "none"
-NoTasks(hs) == \A n \in hs : ~Replicates(Decide27(n, hs, {}, {}))
- \* a check "replicates" when it hands the replicator a task with at least one candidate node. (With overlapping
-\* rules the code as found keeps calling the replicator with an EMPTY candidate list: a holder remembered from
-\* an earlier rule does not lower the shortage of a later rule - a phantom shortage that copies nothing.)
-Replicates(d) == \E k \in 1..Len(d.tasks) : Len(d.tasks[k].nodes) > 0
-Quiet(hs) == \A n \in hs : LET d == Decide27(n, hs, {}, {}) IN ~Replicates(d) /\ d.del = "none"
-NoTasks(hs) == \A n \in hs : ~Replicates(Decide27(n, hs, {}, {}))
- \* a check "replicates" when it hands the replicator a task with at least one candidate node. (With overlapping
-\* rules the code as found keeps calling the replicator with an EMPTY candidate list: a holder remembered from
-\* an earlier rule does not lower the shortage of a later rule - a phantom shortage that copies nothing.)
-Replicates(d) == \E k \in 1..Len(d.tasks) : Len(d.tasks[k].nodes) > 0
-Quiet(hs) == \A n \in hs : LET d == Decide27(n, hs, {}, {}) IN ~Replicates(d) /\ d.del = "none"
-NoTasks(hs) == \A n \in hs : ~Replicates(Decide27(n, hs, {}, {}))
- \* a check "replicates" when it hands the replicator a task with at least one candidate node. (With overlapping
-\* rules the code as found keeps calling the replicator with an EMPTY candidate list: a holder remembered from
-\* an earlier rule does not lower the shortage of a later rule - a phantom shortage that copies nothing.)
-Replicates(d) == \E k \in 1..Len(d.tasks) : Len(d.tasks[k].nodes) > 0
-Quiet(hs) == \A n \in hs : LET d == Decide27(n, hs, {}, {}) IN ~Replicates(d) /\ d.del = "none"
-NoTasks(hs) == \A n \in hs : ~Replicates(Decide27(n, hs, {}, {}))
- \* a check "replicates" when it hands the replicator a task with at least one candidate node. (With overlapping
-\* rules the code as found keeps calling the replicator with an EMPTY candidate list: a holder remembered from
-\* an earlier rule does not lower the shortage of a later rule - a phantom shortage that copies nothing.)
-Replicates(d) == \E k \in 1..Len(d.tasks) : Len(d.tasks[k].nodes) > 0
-Quiet(hs) == \A n \in hs : LET d == Decide27(n, hs, {}, {}) IN ~Replicates(d) /\ d.del = "none"
-NoTasks(hs) == \A n \in hs : ~Replicates(Decide27(n, hs, {}, {}))
- \* a check "replicates" when it hands the replicator a task with at least one candidate node. (With overlapping
-\* rules the code as found keeps calling the replicator with an EMPTY candidate list: a holder remembered from
-\* an earlier rule does not lower the shortage of a later rule - a phantom shortage that copies nothing.)
-Replicates(d) == \E k \in 1..Len(d.tasks) : Len(d.tasks[k].nodes) > 0
-Quiet(hs) == \A n \in hs : LET d == Decide27(n, hs, {}, {}) IN ~Replicates(d) /\ d.del = "none"
-NoTasks(hs) == \A n \in hs : ~Replicates(Decide27(n, hs, {}, {}))
- \* a check "replicates" when it hands the replicator a task with at least one candidate node. (With overlapping
-\* rules the code as found keeps calling the replicator with an EMPTY candidate list: a holder remembered from
-\* an earlier rule does not lower the shortage of a later rule - a phantom shortage that copies nothing.)
-Replicates(d) == \E k \in 1..Len(d.tasks) : Len(d.tasks[k].nodes) > 0
-Quiet(hs) == \A n \in hs : LET d == Decide27(n, hs, {}, {}) IN ~Replicates(d) /\ d.del = "none"
-NoTasks(hs) == \A n \in hs : ~Replicates(Decide27(n, hs, {}, {}))
-\\* a check "replicates" when it hands the replicator a task with at least one candidate node. (With overlapping
-\* rules the code as found keeps calling the replicator with an EMPTY candidate list: a holder remembered from
-\* an earlier rule does not lower the shortage of a later rule - a phantom shortage that copies nothing.)
-Replicates(d) == \E k \in 1..Len(d.tasks) : Len(d.tasks[k].nodes) > 0
-Quiet(hs) == \A n \in hs : LET d == Decide27(n, hs, {}, {}) IN ~Replicates(d) /\ d.del = "none"
-NoTasks(hs) == \A n \in hs : ~Replicates(Decide27(n, hs, {}, {}))
-*\* a check "replicates" when it hands the replicator a task with at least one candidate node. (With overlapping
-\* rules the code as found keeps calling the replicator with an EMPTY candidate list: a holder remembered from
-\* an earlier rule does not lower the shortage of a later rule - a phantom shortage that copies nothing.)
-Replicates(d) == \E k \in 1..Len(d.tasks) : Len(d.tasks[k].nodes) > 0
-Quiet(hs) == \A n \in hs : LET d == Decide27(n, hs, {}, {}) IN ~Replicates(d) /\ d.del = "none"
-NoTasks(hs) == \A n \in hs : ~Replicates(Decide27(n, hs, {}, {}))
- \* a check "replicates" when it hands the replicator a task with at least one candidate node. (With overlapping
-\* rules the code as found keeps calling the replicator with an EMPTY candidate list: a holder remembered from
-\* an earlier rule does not lower the shortage of a later rule - a phantom shortage that copies nothing.)
-Replicates(d) == \E k \in 1..Len(d.tasks) : Len(d.tasks[k].nodes) > 0
-Quiet(hs) == \A n \in hs : LET d == Decide27(n, hs, {}, {}) IN ~Replicates(d) /\ d.del = "none"
-NoTasks(hs) == \A n \in hs : ~Replicates(Decide27(n, hs, {}, {}))
-o\* a check "replicates" when it hands the replicator a task with at least one candidate node. (With overlapping
-\* rules the code as found keeps calling the replicator with an EMPTY candidate list: a holder remembered from
-\* an earlier rule does not lower the shortage of a later rule - a phantom shortage that copies nothing.)
-Replicates(d) == \E k \in 1..Len(d.tasks) : Len(d.tasks[k].nodes) > 0
-Quiet(hs) == \A n \in hs : LET d == Decide27(n, hs, {}, {}) IN ~Replicates(d) /\ d.del = "none"
-NoTasks(hs) == \A n \in hs : ~Replicates(Decide27(n, hs, {}, {}))
-b\* a check "replicates" when it hands the replicator a task with at least one candidate node. (With overlapping
-\* rules the code as found keeps calling the replicator with an EMPTY candidate list: a holder remembered from
-\* an earlier rule does not lower the shortage of a later rule - a phantom shortage that copies nothing.)
-Replicates(d) == \E k \in 1..Len(d.tasks) : Len(d.tasks[k].nodes) > 0
-Quiet(hs) == \A n \in hs : LET d == Decide27(n, hs, {}, {}) IN ~Replicates(d) /\ d.del = "none"
-NoTasks(hs) == \A n \in hs : ~Replicates(Decide27(n, hs, {}, {}))
-s\* a check "replicates" when it hands the replicator a task with at least one candidate node. (With overlapping
-\* rules the code as found keeps calling the replicator with an EMPTY candidate list: a holder remembered from
-\* an earlier rule does not lower the shortage of a later rule - a phantom shortage that copies nothing.)
-Replicates(d) == \E k \in 1..Len(d.tasks) : Len(d.tasks[k].nodes) > 0
-Quiet(hs) == \A n \in hs : LET d == Decide27(n, hs, {}, {}) IN ~Replicates(d) /\ d.del = "none"
-NoTasks(hs) == \A n \in hs : ~Replicates(Decide27(n, hs, {}, {}))
-e\* a check "replicates" when it hands the replicator a task with at least one candidate node. (With overlapping
-\* rules the code as found keeps calling the replicator with an EMPTY candidate list: a holder remembered from
-\* an earlier rule does not lower the shortage of a later rule - a phantom shortage that copies nothing.)
-Replicates(d) == \E k \in 1..Len(d.tasks) : Len(d.tasks[k].nodes) > 0
-Quiet(hs) == \A n \in hs : LET d == Decide27(n, hs, {}, {}) IN ~Replicates(d) /\ d.del = "none"
-NoTasks(hs) == \A n \in hs : ~Replicates(Decide27(n, hs, {}, {}))
-r\* a check "replicates" when it hands the replicator a task with at least one candidate node. (With overlapping
-\* rules the code as found keeps calling the replicator with an EMPTY candidate list: a holder remembered from
-\* an earlier rule does not lower the shortage of a later rule - a phantom shortage that copies nothing.)
-Replicates(d) == \E k \in 1..Len(d.tasks) : Len(d.tasks[k].nodes) > 0
-Quiet(hs) == \A n \in hs : LET d == Decide27(n, hs, {}, {}) IN ~Replicates(d) /\ d.del = "none"
-NoTasks(hs) == \A n \in hs : ~Replicates(Decide27(n, hs, {}, {}))
-v\* a check "replicates" when it hands the replicator a task with at least one candidate node. (With overlapping
-\* rules the code as found keeps calling the replicator with an EMPTY candidate list: a holder remembered from
-\* an earlier rule does not lower the shortage of a later rule - a phantom shortage that copies nothing.)
-Replicates(d) == \E k \in 1..Len(d.tasks) : Len(d.tasks[k].nodes) > 0
-Quiet(hs) == \A n \in hs : LET d == Decide27(n, hs, {}, {}) IN ~Replicates(d) /\ d.del = "none"
-NoTasks(hs) == \A n \in hs : ~Replicates(Decide27(n, hs, {}, {}))
-a\* a check "replicates" when it hands the replicator a task with at least one candidate node. (With overlapping
-\* rules the code as found keeps calling the replicator with an EMPTY candidate list: a holder remembered from
-\* an earlier rule does not lower the shortage of a later rule - a phantom shortage that copies nothing.)
-Replicates(d) == \E k \in 1..Len(d.tasks) : Len(d.tasks[k].nodes) > 0
-Quiet(hs) == \A n \in hs : LET d == Decide27(n, hs, {}, {}) IN ~Replicates(d) /\ d.del = "none"
-NoTasks(hs) == \A n \in hs : ~Replicates(Decide27(n, hs, {}, {}))
-t\* a check "replicates" when it hands the replicator a task with at least one candidate node. (With overlapping
-\* rules the code as found keeps calling the replicator with an EMPTY candidate list: a holder remembered from
-\* an earlier rule does not lower the shortage of a later rule - a phantom shortage that copies nothing.)
-Replicates(d) == \E k \in 1..Len(d.tasks) : Len(d.tasks[k].nodes) > 0
-Quiet(hs) == \A n \in hs : LET d == Decide27(n, hs, {}, {}) IN ~Replicates(d) /\ d.del = "none"
-NoTasks(hs) == \A n \in hs : ~Replicates(Decide27(n, hs, {}, {}))
-i\* a check "replicates" when it hands the replicator a task with at least one candidate node. (With overlapping
-\* rules the code as found keeps calling the replicator with an EMPTY candidate list: a holder remembered from
-\* an earlier rule does not lower the shortage of a later rule - a phantom shortage that copies nothing.)
-Replicates(d) == \E k \in 1..Len(d.tasks) : Len(d.tasks[k].nodes) > 0
-Quiet(hs) == \A n \in hs : LET d == Decide27(n, hs, {}, {}) IN ~Replicates(d) /\ d.del = "none"
-NoTasks(hs) == \A n \in hs : ~Replicates(Decide27(n, hs, {}, {}))
-o\* a check "replicates" when it hands the replicator a task with at least one candidate node. (With overlapping
-\* rules the code as found keeps calling the replicator with an EMPTY candidate list: a holder remembered from
-\* an earlier rule does not lower the shortage of a later rule - a phantom shortage that copies nothing.)
-Replicates(d) == \E k \in 1..Len(d.tasks) : Len(d.tasks[k].nodes) > 0
-Quiet(hs) == \A n \in hs : LET d == Decide27(n, hs, {}, {}) IN ~Replicates(d) /\ d.del = "none"
-NoTasks(hs) == \A n \in hs : ~Replicates(Decide27(n, hs, {}, {}))
-n\* a check "replicates" when it hands the replicator a task with at least one candidate node. (With overlapping
-\* rules the code as found keeps calling the replicator with an EMPTY candidate list: a holder remembered from
-\* an earlier rule does not lower the shortage of a later rule - a phantom shortage that copies nothing.)
-Replicates(d) == \E k \in 1..Len(d.tasks) : Len(d.tasks[k].nodes) > 0
-Quiet(hs) == \A n \in hs : LET d == Decide27(n, hs, {}, {}) IN ~Replicates(d) /\ d.del = "none"
-NoTasks(hs) == \A n \in hs : ~Replicates(Decide27(n, hs, {}, {}))
- \* a check "replicates" when it hands the replicator a task with at least one candidate node. (With overlapping
-\* rules the code as found keeps calling the replicator with an EMPTY candidate list: a holder remembered from
-\* an earlier rule does not lower the shortage of a later rule - a phantom shortage that copies nothing.)
-Replicates(d) == \E k \in 1..Len(d.tasks) : Len(d.tasks[k].nodes) > 0
-Quiet(hs) == \A n \in hs : LET d == Decide27(n, hs, {}, {}) IN ~Replicates(d) /\ d.del = "none"
-NoTasks(hs) == \A n \in hs : ~Replicates(Decide27(n, hs, {}, {}))
-o\* a check "replicates" when it hands the replicator a task with at least one candidate node. (With overlapping
-\* rules the code as found keeps calling the replicator with an EMPTY candidate list: a holder remembered from
-\* an earlier rule does not lower the shortage of a later rule - a phantom shortage that copies nothing.)
-Replicates(d) == \E k \in 1..Len(d.tasks) : Len(d.tasks[k].nodes) > 0
-Quiet(hs) == \A n \in hs : LET d == Decide27(n, hs, {}, {}) IN ~Replicates(d) /\ d.del = "none"
-NoTasks(hs) == \A n \in hs : ~Replicates(Decide27(n, hs, {}, {}))
-f\* a check "replicates" when it hands the replicator a task with at least one candidate node. (With overlapping
-\* rules the code as found keeps calling the replicator with an EMPTY candidate list: a holder remembered from
-\* an earlier rule does not lower the shortage of a later rule - a phantom shortage that copies nothing.)
-Replicates(d) == \E k \in 1..Len(d.tasks) : Len(d.tasks[k].nodes) > 0
-Quiet(hs) == \A n \in hs : LET d == Decide27(n, hs, {}, {}) IN ~Replicates(d) /\ d.del = "none"
-NoTasks(hs) == \A n \in hs : ~Replicates(Decide27(n, hs, {}, {}))
- \* a check "replicates" when it hands the replicator a task with at least one candidate node. (With overlapping
-\* rules the code as found keeps calling the replicator with an EMPTY candidate list: a holder remembered from
-\* an earlier rule does not lower the shortage of a later rule - a phantom shortage that copies nothing.)
-Replicates(d) == \E k \in 1..Len(d.tasks) : Len(d.tasks[k].nodes) > 0
-Quiet(hs) == \A n \in hs : LET d == Decide27(n, hs, {}, {}) IN ~Replicates(d) /\ d.del = "none"
-NoTasks(hs) == \A n \in hs : ~Replicates(Decide27(n, hs, {}, {}))
-t\* a check "replicates" when it hands the replicator a task with at least one candidate node. (With overlapping
-\* rules the code as found keeps calling the replicator with an EMPTY candidate list: a holder remembered from
-\* an earlier rule does not lower the shortage of a later rule - a phantom shortage that copies nothing.)
-Replicates(d) == \E k \in 1..Len(d.tasks) : Len(d.tasks[k].nodes) > 0
-Quiet(hs) == \A n \in hs : LET d == Decide27(n, hs, {}, {}) IN ~Replicates(d) /\ d.del = "none"
-NoTasks(hs) == \A n \in hs : ~Replicates(Decide27(n, hs, {}, {}))
-h\* a check "replicates" when it hands the replicator a task with at least one candidate node. (With overlapping
-\* rules the code as found keeps calling the replicator with an EMPTY candidate list: a holder remembered from
-\* an earlier rule does not lower the shortage of a later rule - a phantom shortage that copies nothing.)
-Replicates(d) == \E k \in 1..Len(d.tasks) : Len(d.tasks[k].nodes) > 0
-Quiet(hs) == \A n \in hs : LET d == Decide27(n, hs, {}, {}) IN ~Replicates(d) /\ d.del = "none"
-NoTasks(hs) == \A n \in hs : ~Replicates(Decide27(n, hs, {}, {}))
-e\* a check "replicates" when it hands the replicator a task with at least one candidate node. (With overlapping
-\* rules the code as found keeps calling the replicator with an EMPTY candidate list: a holder remembered from
-\* an earlier rule does not lower the shortage of a later rule - a phantom shortage that copies nothing.)
-Replicates(d) == \E k \in 1..Len(d.tasks) : Len(d.tasks[k].nodes) > 0
-Quiet(hs) == \A n \in hs : LET d == Decide27(n, hs, {}, {}) IN ~Replicates(d) /\ d.del = "none"
-NoTasks(hs) == \A n \in hs : ~Replicates(Decide27(n, hs, {}, {}))
- \* a check "replicates" when it hands the replicator a task with at least one candidate node. (With overlapping
-\* rules the code as found keeps calling the replicator with an EMPTY candidate list: a holder remembered from
-\* an earlier rule does not lower the shortage of a later rule - a phantom shortage that copies nothing.)
-Replicates(d) == \E k \in 1..Len(d.tasks) : Len(d.tasks[k].nodes) > 0
-Quiet(hs) == \A n \in hs : LET d == Decide27(n, hs, {}, {}) IN ~Replicates(d) /\ d.del = "none"
-NoTasks(hs) == \A n \in hs : ~Replicates(Decide27(n, hs, {}, {}))
-l\* a check "replicates" when it hands the replicator a task with at least one candidate node. (With overlapping
-\* rules the code as found keeps calling the replicator with an EMPTY candidate list: a holder remembered from
-\* an earlier rule does not lower the shortage of a later rule - a phantom shortage that copies nothing.)
-Replicates(d) == \E k \in 1..Len(d.tasks) : Len(d.tasks[k].nodes) > 0
-Quiet(hs) == \A n \in hs : LET d == Decide27(n, hs, {}, {}) IN ~Replicates(d) /\ d.del = "none"
-NoTasks(hs) == \A n \in hs : ~Replicates(Decide27(n, hs, {}, {}))
-a\* a check "replicates" when it hands the replicator a task with at least one candidate node. (With overlapping
-\* rules the code as found keeps calling the replicator with an EMPTY candidate list: a holder remembered from
-\* an earlier rule does not lower the shortage of a later rule - a phantom shortage that copies nothing.)
-Replicates(d) == \E k \in 1..Len(d.tasks) : Len(d.tasks[k].nodes) > 0
-Quiet(hs) == \A n \in hs : LET d == Decide27(n, hs, {}, {}) IN ~Replicates(d) /\ d.del = "none"
-NoTasks(hs) == \A n \in hs : ~Replicates(Decide27(n, hs, {}, {}))
-s\* a check "replicates" when it hands the replicator a task with at least one candidate node. (With overlapping
-\* rules the code as found keeps calling the replicator with an EMPTY candidate list: a holder remembered from
-\* an earlier rule does not lower the shortage of a later rule - a phantom shortage that copies nothing.)
-Replicates(d) == \E k \in 1..Len(d.tasks) : Len(d.tasks[k].nodes) > 0
-Quiet(hs) == \A n \in hs : LET d == Decide27(n, hs, {}, {}) IN ~Replicates(d) /\ d.del = "none"
-NoTasks(hs) == \A n \in hs : ~Replicates(Decide27(n, hs, {}, {}))
-t\* a check "replicates" when it hands the replicator a task with at least one candidate node. (With overlapping
-\* rules the code as found keeps calling the replicator with an EMPTY candidate list: a holder remembered from
-\* an earlier rule does not lower the shortage of a later rule - a phantom shortage that copies nothing.)
-Replicates(d) == \E k \in 1..Len(d.tasks) : Len(d.tasks[k].nodes) > 0
-Quiet(hs) == \A n \in hs : LET d == Decide27(n, hs, {}, {}) IN ~Replicates(d) /\ d.del = "none"
-NoTasks(hs) == \A n \in hs : ~Replicates(Decide27(n, hs, {}, {}))
- \* a check "replicates" when it hands the replicator a task with at least one candidate node. (With overlapping
-\* rules the code as found keeps calling the replicator with an EMPTY candidate list: a holder remembered from
-\* an earlier rule does not lower the shortage of a later rule - a phantom shortage that copies nothing.)
-Replicates(d) == \E k \in 1..Len(d.tasks) : Len(d.tasks[k].nodes) > 0
-Quiet(hs) == \A n \in hs : LET d == Decide27(n, hs, {}, {}) IN ~Replicates(d) /\ d.del = "none"
-NoTasks(hs) == \A n \in hs : ~Replicates(Decide27(n, hs, {}, {}))
-c\* a check "replicates" when it hands the replicator a task with at least one candidate node. (With overlapping
-\* rules the code as found keeps calling the replicator with an EMPTY candidate list: a holder remembered from
-\* an earlier rule does not lower the shortage of a later rule - a phantom shortage that copies nothing.)
-Replicates(d) == \E k \in 1..Len(d.tasks) : Len(d.tasks[k].nodes) > 0
-Quiet(hs) == \A n \in hs : LET d == Decide27(n, hs, {}, {}) IN ~Replicates(d) /\ d.del = "none"
-NoTasks(hs) == \A n \in hs : ~Replicates(Decide27(n, hs, {}, {}))
-h\* a check "replicates" when it hands the replicator a task with at least one candidate node. (With overlapping
-\* rules the code as found keeps calling the replicator with an EMPTY candidate list: a holder remembered from
-\* an earlier rule does not lower the shortage of a later rule - a phantom shortage that copies nothing.)
-Replicates(d) == \E k \in 1..Len(d.tasks) : Len(d.tasks[k].nodes) > 0
-Quiet(hs) == \A n \in hs : LET d == Decide27(n, hs, {}, {}) IN ~Replicates(d) /\ d.del = "none"
-NoTasks(hs) == \A n \in hs : ~Replicates(Decide27(n, hs, {}, {}))
-e\* a check "replicates" when it hands the replicator a task with at least one candidate node. (With overlapping
-\* rules the code as found keeps calling the replicator with an EMPTY candidate list: a holder remembered from
-\* an earlier rule does not lower the shortage of a later rule - a phantom shortage that copies nothing.)
-Replicates(d) == \E k \in 1..Len(d.tasks) : Len(d.tasks[k].nodes) > 0
-Quiet(hs) == \A n \in hs : LET d == Decide27(n, hs, {}, {}) IN ~Replicates(d) /\ d.del = "none"
-NoTasks(hs) == \A n \in hs : ~Replicates(Decide27(n, hs, {}, {}))
-c\* a check "replicates" when it hands the replicator a task with at least one candidate node. (With overlapping
-\* rules the code as found keeps calling the replicator with an EMPTY candidate list: a holder remembered from
-\* an earlier rule does not lower the shortage of a later rule - a phantom shortage that copies nothing.)
-Replicates(d) == \E k \in 1..Len(d.tasks) : Len(d.tasks[k].nodes) > 0
-Quiet(hs) == \A n \in hs : LET d == Decide27(n, hs, {}, {}) IN ~Replicates(d) /\ d.del = "none"
-NoTasks(hs) == \A n \in hs : ~Replicates(Decide27(n, hs, {}, {}))
-k\* a check "replicates" when it hands the replicator a task with at least one candidate node. (With overlapping
-\* rules the code as found keeps calling the replicator with an EMPTY candidate list: a holder remembered from
-\* an earlier rule does not lower the shortage of a later rule - a phantom shortage that copies nothing.)
-Replicates(d) == \E k \in 1..Len(d.tasks) : Len(d.tasks[k].nodes) > 0
-Quiet(hs) == \A n \in hs : LET d == Decide27(n, hs, {}, {}) IN ~Replicates(d) /\ d.del = "none"
-NoTasks(hs) == \A n \in hs : ~Replicates(Decide27(n, hs, {}, {}))
-:\* a check "replicates" when it hands the replicator a task with at least one candidate node. (With overlapping
-\* rules the code as found keeps calling the replicator with an EMPTY candidate list: a holder remembered from
-\* an earlier rule does not lower the shortage of a later rule - a phantom shortage that copies nothing.)
-Replicates(d) == \E k \in 1..Len(d.tasks) : Len(d.tasks[k].nodes) > 0
-Quiet(hs) == \A n \in hs : LET d == Decide27(n, hs, {}, {}) IN ~Replicates(d) /\ d.del = "none"
-NoTasks(hs) == \A n \in hs : ~Replicates(Decide27(n, hs, {}, {}))
- \* a check "replicates" when it hands the replicator a task with at least one candidate node. (With overlapping
-\* rules the code as found keeps calling the replicator with an EMPTY candidate list: a holder remembered from
-\* an earlier rule does not lower the shortage of a later rule - a phantom shortage that copies nothing.)
-Replicates(d) == \E k \in 1..Len(d.tasks) : Len(d.tasks[k].nodes) > 0
-Quiet(hs) == \A n \in hs : LET d == Decide27(n, hs, {}, {}) IN ~Replicates(d) /\ d.del = "none"
-NoTasks(hs) == \A n \in hs : ~Replicates(Decide27(n, hs, {}, {}))
-[\* a check "replicates" when it hands the replicator a task with at least one candidate node. (With overlapping
-\* rules the code as found keeps calling the replicator with an EMPTY candidate list: a holder remembered from
-\* an earlier rule does not lower the shortage of a later rule - a phantom shortage that copies nothing.)
-Replicates(d) == \E k \in 1..Len(d.tasks) : Len(d.tasks[k].nodes) > 0
-Quiet(hs) == \A n \in hs : LET d == Decide27(n, hs, {}, {}) IN ~Replicates(d) /\ d.del = "none"
-NoTasks(hs) == \A n \in hs : ~Replicates(Decide27(n, hs, {}, {}))
-n\* a check "replicates" when it hands the replicator a task with at least one candidate node. (With overlapping
-\* rules the code as found keeps calling the replicator with an EMPTY candidate list: a holder remembered from
-\* an earlier rule does not lower the shortage of a later rule - a phantom shortage that copies nothing.)
-Replicates(d) == \E k \in 1..Len(d.tasks) : Len(d.tasks[k].nodes) > 0
-Quiet(hs) == \A n \in hs : LET d == Decide27(n, hs, {}, {}) IN ~Replicates(d) /\ d.del = "none"
-NoTasks(hs) == \A n \in hs : ~Replicates(Decide27(n, hs, {}, {}))
-o\* a check "replicates" when it hands the replicator a task with at least one candidate node. (With overlapping
-\* rules the code as found keeps calling the replicator with an EMPTY candidate list: a holder remembered from
-\* an earlier rule does not lower the shortage of a later rule - a phantom shortage that copies nothing.)
-Replicates(d) == \E k \in 1..Len(d.tasks) : Len(d.tasks[k].nodes) > 0
-Quiet(hs) == \A n \in hs : LET d == Decide27(n, hs, {}, {}) IN ~Replicates(d) /\ d.del = "none"
-NoTasks(hs) == \A n \in hs : ~Replicates(Decide27(n, hs, {}, {}))
-d\* a check "replicates" when it hands the replicator a task with at least one candidate node. (With overlapping
-\* rules the code as found keeps calling the replicator with an EMPTY candidate list: a holder remembered from
-\* an earlier rule does not lower the shortage of a later rule - a phantom shortage that copies nothing.)
-Replicates(d) == \E k \in 1..Len(d.tasks) : Len(d.tasks[k].nodes) > 0
-Quiet(hs) == \A n \in hs : LET d == Decide27(n, hs, {}, {}) IN ~Replicates(d) /\ d.del = "none"
-NoTasks(hs) == \A n \in hs : ~Replicates(Decide27(n, hs, {}, {}))
-e\* a check "replicates" when it hands the replicator a task with at least one candidate node. (With overlapping
-\* rules the code as found keeps calling the replicator with an EMPTY candidate list: a holder remembered from
-\* an earlier rule does not lower the shortage of a later rule - a phantom shortage that copies nothing.)
-Replicates(d) == \E k \in 1..Len(d.tasks) : Len(d.tasks[k].nodes) > 0
-Quiet(hs) == \A n \in hs : LET d == Decide27(n, hs, {}, {}) IN ~Replicates(d) /\ d.del = "none"
-NoTasks(hs) == \A n \in hs : ~Replicates(Decide27(n, hs, {}, {}))
-,\* a check "replicates" when it hands the replicator a task with at least one candidate node. (With overlapping
-\* rules the code as found keeps calling the replicator with an EMPTY candidate list: a holder remembered from
-\* an earlier rule does not lower the shortage of a later rule - a phantom shortage that copies nothing.)
-Replicates(d) == \E k \in 1..Len(d.tasks) : Len(d.tasks[k].nodes) > 0
-Quiet(hs) == \A n \in hs : LET d == Decide27(n, hs, {}, {}) IN ~Replicates(d) /\ d.del = "none"
-NoTasks(hs) == \A n \in hs : ~Replicates(Decide27(n, hs, {}, {}))
- \* a check "replicates" when it hands the replicator a task with at least one candidate node. (With overlapping
-\* rules the code as found keeps calling the replicator with an EMPTY candidate list: a holder remembered from
-\* an earlier rule does not lower the shortage of a later rule - a phantom shortage that copies nothing.)
-Replicates(d) == \E k \in 1..Len(d.tasks) : Len(d.tasks[k].nodes) > 0
-Quiet(hs) == \A n \in hs : LET d == Decide27(n, hs, {}, {}) IN ~Replicates(d) /\ d.del = "none"
-NoTasks(hs) == \A n \in hs : ~Replicates(Decide27(n, hs, {}, {}))
-d\* a check "replicates" when it hands the replicator a task with at least one candidate node. (With overlapping
-\* rules the code as found keeps calling the replicator with an EMPTY candidate list: a holder remembered from
-\* an earlier rule does not lower the shortage of a later rule - a phantom shortage that copies nothing.)
-Replicates(d) == \E k \in 1..Len(d.tasks) : Len(d.tasks[k].nodes) > 0
-Quiet(hs) == \A n \in hs : LET d == Decide27(n, hs, {}, {}) IN ~Replicates(d) /\ d.del = "none"
-NoTasks(hs) == \A n \in hs : ~Replicates(Decide27(n, hs, {}, {}))
-o\* a check "replicates" when it hands the replicator a task with at least one candidate node. (With overlapping
-\* rules the code as found keeps calling the replicator with an EMPTY candidate list: a holder remembered from
-\* an earlier rule does not lower the shortage of a later rule - a phantom shortage that copies nothing.)
-Replicates(d) == \E k \in 1..Len(d.tasks) : Len(d.tasks[k].nodes) > 0
-Quiet(hs) == \A n \in hs : LET d == Decide27(n, hs, {}, {}) IN ~Replicates(d) /\ d.del = "none"
-NoTasks(hs) == \A n \in hs : ~Replicates(Decide27(n, hs, {}, {}))
-w\* a check "replicates" when it hands the replicator a task with at least one candidate node. (With overlapping
-\* rules the code as found keeps calling the replicator with an EMPTY candidate list: a holder remembered from
-\* an earlier rule does not lower the shortage of a later rule - a phantom shortage that copies nothing.)
-Replicates(d) == \E k \in 1..Len(d.tasks) : Len(d.tasks[k].nodes) > 0
-Quiet(hs) == \A n \in hs : LET d == Decide27(n, hs, {}, {}) IN ~Replicates(d) /\ d.del = "none"
-NoTasks(hs) == \A n \in hs : ~Replicates(Decide27(n, hs, {}, {}))
-n\* a check "replicates" when it hands the replicator a task with at least one candidate node. (With overlapping
-\* rules the code as found keeps calling the replicator with an EMPTY candidate list: a holder remembered from
-\* an earlier rule does not lower the shortage of a later rule - a phantom shortage that copies nothing.)
-Replicates(d) == \E k \in 1..Len(d.tasks) : Len(d.tasks[k].nodes) > 0
-Quiet(hs) == \A n \in hs : LET d == Decide27(n, hs, {}, {}) IN ~Replicates(d) /\ d.del = "none"
-NoTasks(hs) == \A n \in hs : ~Replicates(Decide27(n, hs, {}, {}))
-,\* a check "replicates" when it hands the replicator a task with at least one candidate node. (With overlapping
-\* rules the code as found keeps calling the replicator with an EMPTY candidate list: a holder remembered from
-\* an earlier rule does not lower the shortage of a later rule - a phantom shortage that copies nothing.)
-Replicates(d) == \E k \in 1..Len(d.tasks) : Len(d.tasks[k].nodes) > 0
-Quiet(hs) == \A n \in hs : LET d == Decide27(n, hs, {}, {}) IN ~Replicates(d) /\ d.del = "none"
-NoTasks(hs) == \A n \in hs : ~Replicates(Decide27(n, hs, {}, {}))
- \* a check "replicates" when it hands the replicator a task with at least one candidate node. (With overlapping
-\* rules the code as found keeps calling the replicator with an EMPTY candidate list: a holder remembered from
-\* an earlier rule does not lower the shortage of a later rule - a phantom shortage that copies nothing.)
-Replicates(d) == \E k \in 1..Len(d.tasks) : Len(d.tasks[k].nodes) > 0
-Quiet(hs) == \A n \in hs : LET d == Decide27(n, hs, {}, {}) IN ~Replicates(d) /\ d.del = "none"
-NoTasks(hs) == \A n \in hs : ~Replicates(Decide27(n, hs, {}, {}))
-d\* a check "replicates" when it hands the replicator a task with at least one candidate node. (With overlapping
-\* rules the code as found keeps calling the replicator with an EMPTY candidate list: a holder remembered from
-\* an earlier rule does not lower the shortage of a later rule - a phantom shortage that copies nothing.)
-Replicates(d) == \E k \in 1..Len(d.tasks) : Len(d.tasks[k].nodes) > 0
-Quiet(hs) == \A n \in hs : LET d == Decide27(n, hs, {}, {}) IN ~Replicates(d) /\ d.del = "none"
-NoTasks(hs) == \A n \in hs : ~Replicates(Decide27(n, hs, {}, {}))
-e\* a check "replicates" when it hands the replicator a task with at least one candidate node. (With overlapping
-\* rules the code as found keeps calling the replicator with an EMPTY candidate list: a holder remembered from
-\* an earlier rule does not lower the shortage of a later rule - a phantom shortage that copies nothing.)
-Replicates(d) == \E k \in 1..Len(d.tasks) : Len(d.tasks[k].nodes) > 0
-Quiet(hs) == \A n \in hs : LET d == Decide27(n, hs, {}, {}) IN ~Replicates(d) /\ d.del = "none"
-NoTasks(hs) == \A n \in hs : ~Replicates(Decide27(n, hs, {}, {}))
-l\* a check "replicates" when it hands the replicator a task with at least one candidate node. (With overlapping
-\* rules the code as found keeps calling the replicator with an EMPTY candidate list: a holder remembered from
-\* an earlier rule does not lower the shortage of a later rule - a phantom shortage that copies nothing.)
-Replicates(d) == \E k \in 1..Len(d.tasks) : Len(d.tasks[k].nodes) > 0
-Quiet(hs) == \A n \in hs : LET d == Decide27(n, hs, {}, {}) IN ~Replicates(d) /\ d.del = "none"
-NoTasks(hs) == \A n \in hs : ~Replicates(Decide27(n, hs, {}, {}))
-,\* a check "replicates" when it hands the replicator a task with at least one candidate node. (With overlapping
-\* rules the code as found keeps calling the replicator with an EMPTY candidate list: a holder remembered from
-\* an earlier rule does not lower the shortage of a later rule - a phantom shortage that copies nothing.)
-Replicates(d) == \E k \in 1..Len(d.tasks) : Len(d.tasks[k].nodes) > 0
-Quiet(hs) == \A n \in hs : LET d == Decide27(n, hs, {}, {}) IN ~Replicates(d) /\ d.del = "none"
-NoTasks(hs) == \A n \in hs : ~Replicates(Decide27(n, hs, {}, {}))
- \* a check "replicates" when it hands the replicator a task with at least one candidate node. (With overlapping
-\* rules the code as found keeps calling the replicator with an EMPTY candidate list: a holder remembered from
-\* an earlier rule does not lower the shortage of a later rule - a phantom shortage that copies nothing.)
-Replicates(d) == \E k \in 1..Len(d.tasks) : Len(d.tasks[k].nodes) > 0
-Quiet(hs) == \A n \in hs : LET d == Decide27(n, hs, {}, {}) IN ~Replicates(d) /\ d.del = "none"
-NoTasks(hs) == \A n \in hs : ~Replicates(Decide27(n, hs, {}, {}))
-t\* a check "replicates" when it hands the replicator a task with at least one candidate node. (With overlapping
-\* rules the code as found keeps calling the replicator with an EMPTY candidate list: a holder remembered from
-\* an earlier rule does not lower the shortage of a later rule - a phantom shortage that copies nothing.)
-Replicates(d) == \E k \in 1..Len(d.tasks) : Len(d.tasks[k].nodes) > 0
-Quiet(hs) == \A n \in hs : LET d == Decide27(n, hs, {}, {}) IN ~Replicates(d) /\ d.del = "none"
-NoTasks(hs) == \A n \in hs : ~Replicates(Decide27(n, hs, {}, {}))
-a\* a check "replicates" when it hands the replicator a task with at least one candidate node. (With overlapping
-\* rules the code as found keeps calling the replicator with an EMPTY candidate list: a holder remembered from
-\* an earlier rule does not lower the shortage of a later rule - a phantom shortage that copies nothing.)
-Replicates(d) == \E k \in 1..Len(d.tasks) : Len(d.tasks[k].nodes) > 0
-Quiet(hs) == \A n \in hs : LET d == Decide27(n, hs, {}, {}) IN ~Replicates(d) /\ d.del = "none"
-NoTasks(hs) == \A n \in hs : ~Replicates(Decide27(n, hs, {}, {}))
-s\* a check "replicates" when it hands the replicator a task with at least one candidate node. (With overlapping
-\* rules the code as found keeps calling the replicator with an EMPTY candidate list: a holder remembered from
-\* an earlier rule does not lower the shortage of a later rule - a phantom shortage that copies nothing.)
-Replicates(d) == \E k \in 1..Len(d.tasks) : Len(d.tasks[k].nodes) > 0
-Quiet(hs) == \A n \in hs : LET d == Decide27(n, hs, {}, {}) IN ~Replicates(d) /\ d.del = "none"
-NoTasks(hs) == \A n \in hs : ~Replicates(Decide27(n, hs, {}, {}))
-k\* a check "replicates" when it hands the replicator a task with at least one candidate node. (With overlapping
-\* rules the code as found keeps calling the replicator with an EMPTY candidate list: a holder remembered from
-\* an earlier rule does not lower the shortage of a later rule - a phantom shortage that copies nothing.)
-Replicates(d) == \E k \in 1..Len(d.tasks) : Len(d.tasks[k].nodes) > 0
-Quiet(hs) == \A n \in hs : LET d == Decide27(n, hs, {}, {}) IN ~Replicates(d) /\ d.del = "none"
-NoTasks(hs) == \A n \in hs : ~Replicates(Decide27(n, hs, {}, {}))
-s\* a check "replicates" when it hands the replicator a task with at least one candidate node. (With overlapping
-\* rules the code as found keeps calling the replicator with an EMPTY candidate list: a holder remembered from
-\* an earlier rule does not lower the shortage of a later rule - a phantom shortage that copies nothing.)
-Replicates(d) == \E k \in 1..Len(d.tasks) : Len(d.tasks[k].nodes) > 0
-Quiet(hs) == \A n \in hs : LET d == Decide27(n, hs, {}, {}) IN ~Replicates(d) /\ d.del = "none"
-NoTasks(hs) == \A n \in hs : ~Replicates(Decide27(n, hs, {}, {}))
-,\* a check "replicates" when it hands the replicator a task with at least one candidate node. (With overlapping
-\* rules the code as found keeps calling the replicator with an EMPTY candidate list: a holder remembered from
-\* an earlier rule does not lower the shortage of a later rule - a phantom shortage that copies nothing.)
-Replicates(d) == \E k \in 1..Len(d.tasks) : Len(d.tasks[k].nodes) > 0
-Quiet(hs) == \A n \in hs : LET d == Decide27(n, hs, {}, {}) IN ~Replicates(d) /\ d.del = "none"
-NoTasks(hs) == \A n \in hs : ~Replicates(Decide27(n, hs, {}, {}))
- \* a check "replicates" when it hands the replicator a task with at least one candidate node. (With overlapping
-\* rules the code as found keeps calling the replicator with an EMPTY candidate list: a holder remembered from
-\* an earlier rule does not lower the shortage of a later rule - a phantom shortage that copies nothing.)
-Replicates(d) == \E k \in 1..Len(d.tasks) : Len(d.tasks[k].nodes) > 0
-Quiet(hs) == \A n \in hs : LET d == Decide27(n, hs, {}, {}) IN ~Replicates(d) /\ d.del = "none"
-NoTasks(hs) == \A n \in hs : ~Replicates(Decide27(n, hs, {}, {}))
-s\* a check "replicates" when it hands the replicator a task with at least one candidate node. (With overlapping
-\* rules the code as found keeps calling the replicator with an EMPTY candidate list: a holder remembered from
-\* an earlier rule does not lower the shortage of a later rule - a phantom shortage that copies nothing.)
-Replicates(d) == \E k \in 1..Len(d.tasks) : Len(d.tasks[k].nodes) > 0
-Quiet(hs) == \A n \in hs : LET d == Decide27(n, hs, {}, {}) IN ~Replicates(d) /\ d.del = "none"
-NoTasks(hs) == \A n \in hs : ~Replicates(Decide27(n, hs, {}, {}))
-t\* a check "replicates" when it hands the replicator a task with at least one candidate node. (With overlapping
-\* rules the code as found keeps calling the replicator with an EMPTY candidate list: a holder remembered from
-\* an earlier rule does not lower the shortage of a later rule - a phantom shortage that copies nothing.)
-Replicates(d) == \E k \in 1..Len(d.tasks) : Len(d.tasks[k].nodes) > 0
-Quiet(hs) == \A n \in hs : LET d == Decide27(n, hs, {}, {}) IN ~Replicates(d) /\ d.del = "none"
-NoTasks(hs) == \A n \in hs : ~Replicates(Decide27(n, hs, {}, {}))
-o\* a check "replicates" when it hands the replicator a task with at least one candidate node. (With overlapping
-\* rules the code as found keeps calling the replicator with an EMPTY candidate list: a holder remembered from
-\* an earlier rule does not lower the shortage of a later rule - a phantom shortage that copies nothing.)
-Replicates(d) == \E k \in 1..Len(d.tasks) : Len(d.tasks[k].nodes) > 0
-Quiet(hs) == \A n \in hs : LET d == Decide27(n, hs, {}, {}) IN ~Replicates(d) /\ d.del = "none"
-NoTasks(hs) == \A n \in hs : ~Replicates(Decide27(n, hs, {}, {}))
-r\* a check "replicates" when it hands the replicator a task with at least one candidate node. (With overlapping
-\* rules the code as found keeps calling the replicator with an EMPTY candidate list: a holder remembered from
-\* an earlier rule does not lower the shortage of a later rule - a phantom shortage that copies nothing.)
-Replicates(d) == \E k \in 1..Len(d.tasks) : Len(d.tasks[k].nodes) > 0
-Quiet(hs) == \A n \in hs : LET d == Decide27(n, hs, {}, {}) IN ~Replicates(d) /\ d.del = "none"
-NoTasks(hs) == \A n \in hs : ~Replicates(Decide27(n, hs, {}, {}))
-e\* a check "replicates" when it hands the replicator a task with at least one candidate node. (With overlapping
-\* rules the code as found keeps calling the replicator with an EMPTY candidate list: a holder remembered from
-\* an earlier rule does not lower the shortage of a later rule - a phantom shortage that copies nothing.)
-Replicates(d) == \E k \in 1..Len(d.tasks) : Len(d.tasks[k].nodes) > 0
-Quiet(hs) == \A n \in hs : LET d == Decide27(n, hs, {}, {}) IN ~Replicates(d) /\ d.del = "none"
-NoTasks(hs) == \A n \in hs : ~Replicates(Decide27(n, hs, {}, {}))
-d\* a check "replicates" when it hands the replicator a task with at least one candidate node. (With overlapping
-\* rules the code as found keeps calling the replicator with an EMPTY candidate list: a holder remembered from
-\* an earlier rule does not lower the shortage of a later rule - a phantom shortage that copies nothing.)
-Replicates(d) == \E k \in 1..Len(d.tasks) : Len(d.tasks[k].nodes) > 0
-Quiet(hs) == \A n \in hs : LET d == Decide27(n, hs, {}, {}) IN ~Replicates(d) /\ d.del = "none"
-NoTasks(hs) == \A n \in hs : ~Replicates(Decide27(n, hs, {}, {}))
-]\* a check "replicates" when it hands the replicator a task with at least one candidate node. (With overlapping
-\* rules the code as found keeps calling the replicator with an EMPTY candidate list: a holder remembered from
-\* an earlier rule does not lower the shortage of a later rule - a phantom shortage that copies nothing.)
-Replicates(d) == \E k \in 1..Len(d.tasks) : Len(d.tasks[k].nodes) > 0
-Quiet(hs) == \A n \in hs : LET d == Decide27(n, hs, {}, {}) IN ~Replicates(d) /\ d.del = "none"
-NoTasks(hs) == \A n \in hs : ~Replicates(Decide27(n, hs, {}, {}))
-
-\* a check "replicates" when it hands the replicator a task with at least one candidate node. (With overlapping
-\* rules the code as found keeps calling the replicator with an EMPTY candidate list: a holder remembered from
-\* an earlier rule does not lower the shortage of a later rule - a phantom shortage that copies nothing.)
-Replicates(d) == \E k \in 1..Len(d.tasks) : Len(d.tasks[k].nodes) > 0
-Quiet(hs) == \A n \in hs : LET d == Decide27(n, hs, {}, {}) IN ~Replicates(d) /\ d.del = "none"
-NoTasks(hs) == \A n \in hs : ~Replicates(Decide27(n, hs, {}, {}))
-c\* a check "replicates" when it hands the replicator a task with at least one candidate node. (With overlapping
-\* rules the code as found keeps calling the replicator with an EMPTY candidate list: a holder remembered from
-\* an earlier rule does not lower the shortage of a later rule - a phantom shortage that copies nothing.)
-Replicates(d) == \E k \in 1..Len(d.tasks) : Len(d.tasks[k].nodes) > 0
-Quiet(hs) == \A n \in hs : LET d == Decide27(n, hs, {}, {}) IN ~Replicates(d) /\ d.del = "none"
-NoTasks(hs) == \A n \in hs : ~Replicates(Decide27(n, hs, {}, {}))
-v\* a check "replicates" when it hands the replicator a task with at least one candidate node. (With overlapping
-\* rules the code as found keeps calling the replicator with an EMPTY candidate list: a holder remembered from
-\* an earlier rule does not lower the shortage of a later rule - a phantom shortage that copies nothing.)
-Replicates(d) == \E k \in 1..Len(d.tasks) : Len(d.tasks[k].nodes) > 0
-Quiet(hs) == \A n \in hs : LET d == Decide27(n, hs, {}, {}) IN ~Replicates(d) /\ d.del = "none"
-NoTasks(hs) == \A n \in hs : ~Replicates(Decide27(n, hs, {}, {}))
-a\* a check "replicates" when it hands the replicator a task with at least one candidate node. (With overlapping
-\* rules the code as found keeps calling the replicator with an EMPTY candidate list: a holder remembered from
-\* an earlier rule does not lower the shortage of a later rule - a phantom shortage that copies nothing.)
-Replicates(d) == \E k \in 1..Len(d.tasks) : Len(d.tasks[k].nodes) > 0
-Quiet(hs) == \A n \in hs : LET d == Decide27(n, hs, {}, {}) IN ~Replicates(d) /\ d.del = "none"
-NoTasks(hs) == \A n \in hs : ~Replicates(Decide27(n, hs, {}, {}))
-r\* a check "replicates" when it hands the replicator a task with at least one candidate node. (With overlapping
-\* rules the code as found keeps calling the replicator with an EMPTY candidate list: a holder remembered from
-\* an earlier rule does not lower the shortage of a later rule - a phantom shortage that copies nothing.)
-Replicates(d) == \E k \in 1..Len(d.tasks) : Len(d.tasks[k].nodes) > 0
-Quiet(hs) == \A n \in hs : LET d == Decide27(n, hs, {}, {}) IN ~Replicates(d) /\ d.del = "none"
-NoTasks(hs) == \A n \in hs : ~Replicates(Decide27(n, hs, {}, {}))
-s\* a check "replicates" when it hands the replicator a task with at least one candidate node. (With overlapping
-\* rules the code as found keeps calling the replicator with an EMPTY candidate list: a holder remembered from
-\* an earlier rule does not lower the shortage of a later rule - a phantom shortage that copies nothing.)
-Replicates(d) == \E k \in 1..Len(d.tasks) : Len(d.tasks[k].nodes) > 0
-Quiet(hs) == \A n \in hs : LET d == Decide27(n, hs, {}, {}) IN ~Replicates(d) /\ d.del = "none"
-NoTasks(hs) == \A n \in hs : ~Replicates(Decide27(n, hs, {}, {}))
- \* a check "replicates" when it hands the replicator a task with at least one candidate node. (With overlapping
-\* rules the code as found keeps calling the replicator with an EMPTY candidate list: a holder remembered from
-\* an earlier rule does not lower the shortage of a later rule - a phantom shortage that copies nothing.)
-Replicates(d) == \E k \in 1..Len(d.tasks) : Len(d.tasks[k].nodes) > 0
-Quiet(hs) == \A n \in hs : LET d == Decide27(n, hs, {}, {}) IN ~Replicates(d) /\ d.del = "none"
-NoTasks(hs) == \A n \in hs : ~Replicates(Decide27(n, hs, {}, {}))
-=\* a check "replicates" when it hands the replicator a task with at least one candidate node. (With overlapping
-\* rules the code as found keeps calling the replicator with an EMPTY candidate list: a holder remembered from
-\* an earlier rule does not lower the shortage of a later rule - a phantom shortage that copies nothing.)
-Replicates(d) == \E k \in 1..Len(d.tasks) : Len(d.tasks[k].nodes) > 0
-Quiet(hs) == \A n \in hs : LET d == Decide27(n, hs, {}, {}) IN ~Replicates(d) /\ d.del = "none"
-NoTasks(hs) == \A n \in hs : ~Replicates(Decide27(n, hs, {}, {}))
-=\* a check "replicates" when it hands the replicator a task with at least one candidate node. (With overlapping
-\* rules the code as found keeps calling the replicator with an EMPTY candidate list: a holder remembered from
-\* an earlier rule does not lower the shortage of a later rule - a phantom shortage that copies nothing.)
-Replicates(d) == \E k \in 1..Len(d.tasks) : Len(d.tasks[k].nodes) > 0
-Quiet(hs) == \A n \in hs : LET d == Decide27(n, hs, {}, {}) IN ~Replicates(d) /\ d.del = "none"
-NoTasks(hs) == \A n \in hs : ~Replicates(Decide27(n, hs, {}, {}))
- \* a check "replicates" when it hands the replicator a task with at least one candidate node. (With overlapping
-\* rules the code as found keeps calling the replicator with an EMPTY candidate list: a holder remembered from
-\* an earlier rule does not lower the shortage of a later rule - a phantom shortage that copies nothing.)
-Replicates(d) == \E k \in 1..Len(d.tasks) : Len(d.tasks[k].nodes) > 0
-Quiet(hs) == \A n \in hs : LET d == Decide27(n, hs, {}, {}) IN ~Replicates(d) /\ d.del = "none"
-NoTasks(hs) == \A n \in hs : ~Replicates(Decide27(n, hs, {}, {}))
-<\* a check "replicates" when it hands the replicator a task with at least one candidate node. (With overlapping
-\* rules the code as found keeps calling the replicator with an EMPTY candidate list: a holder remembered from
-\* an earlier rule does not lower the shortage of a later rule - a phantom shortage that copies nothing.)
-Replicates(d) == \E k \in 1..Len(d.tasks) : Len(d.tasks[k].nodes) > 0
-Quiet(hs) == \A n \in hs : LET d == Decide27(n, hs, {}, {}) IN ~Replicates(d) /\ d.del = "none"
-NoTasks(hs) == \A n \in hs : ~Replicates(Decide27(n, hs, {}, {}))
-<\* a check "replicates" when it hands the replicator a task with at least one candidate node. (With overlapping
-\* rules the code as found keeps calling the replicator with an EMPTY candidate list: a holder remembered from
-\* an earlier rule does not lower the shortage of a later rule - a phantom shortage that copies nothing.)
-Replicates(d) == \E k \in 1..Len(d.tasks) : Len(d.tasks[k].nodes) > 0
-Quiet(hs) == \A n \in hs : LET d == Decide27(n, hs, {}, {}) IN ~Replicates(d) /\ d.del = "none"
-NoTasks(hs) == \A n \in hs : ~Replicates(Decide27(n, hs, {}, {}))
-r\* a check "replicates" when it hands the replicator a task with at least one candidate node. (With overlapping
-\* rules the code as found keeps calling the replicator with an EMPTY candidate list: a holder remembered from
-\* an earlier rule does not lower the shortage of a later rule - a phantom shortage that copies nothing.)
-Replicates(d) == \E k \in 1..Len(d.tasks) : Len(d.tasks[k].nodes) > 0
-Quiet(hs) == \A n \in hs : LET d == Decide27(n, hs, {}, {}) IN ~Replicates(d) /\ d.del = "none"
-NoTasks(hs) == \A n \in hs : ~Replicates(Decide27(n, hs, {}, {}))
-u\* a check "replicates" when it hands the replicator a task with at least one candidate node. (With overlapping
-\* rules the code as found keeps calling the replicator with an EMPTY candidate list: a holder remembered from
-\* an earlier rule does not lower the shortage of a later rule - a phantom shortage that copies nothing.)
-Replicates(d) == \E k \in 1..Len(d.tasks) : Len(d.tasks[k].nodes) > 0
-Quiet(hs) == \A n \in hs : LET d == Decide27(n, hs, {}, {}) IN ~Replicates(d) /\ d.del = "none"
-NoTasks(hs) == \A n \in hs : ~Replicates(Decide27(n, hs, {}, {}))
-l\* a check "replicates" when it hands the replicator a task with at least one candidate node. (With overlapping
-\* rules the code as found keeps calling the replicator with an EMPTY candidate list: a holder remembered from
-\* an earlier rule does not lower the shortage of a later rule - a phantom shortage that copies nothing.)
-Replicates(d) == \E k \in 1..Len(d.tasks) : Len(d.tasks[k].nodes) > 0
-Quiet(hs) == \A n \in hs : LET d == Decide27(n, hs, {}, {}) IN ~Replicates(d) /\ d.del = "none"
-NoTasks(hs) == \A n \in hs : ~Replicates(Decide27(n, hs, {}, {}))
-e\* a check "replicates" when it hands the replicator a task with at least one candidate node. (With overlapping
-\* rules the code as found keeps calling the replicator with an EMPTY candidate list: a holder remembered from
-\* an earlier rule does not lower the shortage of a later rule - a phantom shortage that copies nothing.)
-Replicates(d) == \E k \in 1..Len(d.tasks) : Len(d.tasks[k].nodes) > 0
-Quiet(hs) == \A n \in hs : LET d == Decide27(n, hs, {}, {}) IN ~Replicates(d) /\ d.del = "none"
-NoTasks(hs) == \A n \in hs : ~Replicates(Decide27(n, hs, {}, {}))
-s\* a check "replicates" when it hands the replicator a task with at least one candidate node. (With overlapping
-\* rules the code as found keeps calling the replicator with an EMPTY candidate list: a holder remembered from
-\* an earlier rule does not lower the shortage of a later rule - a phantom shortage that copies nothing.)
-Replicates(d) == \E k \in 1..Len(d.tasks) : Len(d.tasks[k].nodes) > 0
-Quiet(hs) == \A n \in hs : LET d == Decide27(n, hs, {}, {}) IN ~Replicates(d) /\ d.del = "none"
-NoTasks(hs) == \A n \in hs : ~Replicates(Decide27(n, hs, {}, {}))
-,\* a check "replicates" when it hands the replicator a task with at least one candidate node. (With overlapping
-\* rules the code as found keeps calling the replicator with an EMPTY candidate list: a holder remembered from
-\* an earlier rule does not lower the shortage of a later rule - a phantom shortage that copies nothing.)
-Replicates(d) == \E k \in 1..Len(d.tasks) : Len(d.tasks[k].nodes) > 0
-Quiet(hs) == \A n \in hs : LET d == Decide27(n, hs, {}, {}) IN ~Replicates(d) /\ d.del = "none"
-NoTasks(hs) == \A n \in hs : ~Replicates(Decide27(n, hs, {}, {}))
- \* a check "replicates" when it hands the replicator a task with at least one candidate node. (With overlapping
-\* rules the code as found keeps calling the replicator with an EMPTY candidate list: a holder remembered from
-\* an earlier rule does not lower the shortage of a later rule - a phantom shortage that copies nothing.)
-Replicates(d) == \E k \in 1..Len(d.tasks) : Len(d.tasks[k].nodes) > 0
-Quiet(hs) == \A n \in hs : LET d == Decide27(n, hs, {}, {}) IN ~Replicates(d) /\ d.del = "none"
-NoTasks(hs) == \A n \in hs : ~Replicates(Decide27(n, hs, {}, {}))
-h\* a check "replicates" when it hands the replicator a task with at least one candidate node. (With overlapping
-\* rules the code as found keeps calling the replicator with an EMPTY candidate list: a holder remembered from
-\* an earlier rule does not lower the shortage of a later rule - a phantom shortage that copies nothing.)
-Replicates(d) == \E k \in 1..Len(d.tasks) : Len(d.tasks[k].nodes) > 0
-Quiet(hs) == \A n \in hs : LET d == Decide27(n, hs, {}, {}) IN ~Replicates(d) /\ d.del = "none"
-NoTasks(hs) == \A n \in hs : ~Replicates(Decide27(n, hs, {}, {}))
-o\* a check "replicates" when it hands the replicator a task with at least one candidate node. (With overlapping
-\* rules the code as found keeps calling the replicator with an EMPTY candidate list: a holder remembered from
-\* an earlier rule does not lower the shortage of a later rule - a phantom shortage that copies nothing.)
-Replicates(d) == \E k \in 1..Len(d.tasks) : Len(d.tasks[k].nodes) > 0
-Quiet(hs) == \A n \in hs : LET d == Decide27(n, hs, {}, {}) IN ~Replicates(d) /\ d.del = "none"
-NoTasks(hs) == \A n \in hs : ~Replicates(Decide27(n, hs, {}, {}))
-l\* a check "replicates" when it hands the replicator a task with at least one candidate node. (With overlapping
-\* rules the code as found keeps calling the replicator with an EMPTY candidate list: a holder remembered from
-\* an earlier rule does not lower the shortage of a later rule - a phantom shortage that copies nothing.)
-Replicates(d) == \E k \in 1..Len(d.tasks) : Len(d.tasks[k].nodes) > 0
-Quiet(hs) == \A n \in hs : LET d == Decide27(n, hs, {}, {}) IN ~Replicates(d) /\ d.del = "none"
-NoTasks(hs) == \A n \in hs : ~Replicates(Decide27(n, hs, {}, {}))
-d\* a check "replicates" when it hands the replicator a task with at least one candidate node. (With overlapping
-\* rules the code as found keeps calling the replicator with an EMPTY candidate list: a holder remembered from
-\* an earlier rule does not lower the shortage of a later rule - a phantom shortage that copies nothing.)
-Replicates(d) == \E k \in 1..Len(d.tasks) : Len(d.tasks[k].nodes) > 0
-Quiet(hs) == \A n \in hs : LET d == Decide27(n, hs, {}, {}) IN ~Replicates(d) /\ d.del = "none"
-NoTasks(hs) == \A n \in hs : ~Replicates(Decide27(n, hs, {}, {}))
-e\* a check "replicates" when it hands the replicator a task with at least one candidate node. (With overlapping
-\* rules the code as found keeps calling the replicator with an EMPTY candidate list: a holder remembered from
-\* an earlier rule does not lower the shortage of a later rule - a phantom shortage that copies nothing.)
-Replicates(d) == \E k \in 1..Len(d.tasks) : Len(d.tasks[k].nodes) > 0
-Quiet(hs) == \A n \in hs : LET d == Decide27(n, hs, {}, {}) IN ~Replicates(d) /\ d.del = "none"
-NoTasks(hs) == \A n \in hs : ~Replicates(Decide27(n, hs, {}, {}))
-r\* a check "replicates" when it hands the replicator a task with at least one candidate node. (With overlapping
-\* rules the code as found keeps calling the replicator with an EMPTY candidate list: a holder remembered from
-\* an earlier rule does not lower the shortage of a later rule - a phantom shortage that copies nothing.)
-Replicates(d) == \E k \in 1..Len(d.tasks) : Len(d.tasks[k].nodes) > 0
-Quiet(hs) == \A n \in hs : LET d == Decide27(n, hs, {}, {}) IN ~Replicates(d) /\ d.del = "none"
-NoTasks(hs) == \A n \in hs : ~Replicates(Decide27(n, hs, {}, {}))
-s\* a check "replicates" when it hands the replicator a task with at least one candidate node. (With overlapping
-\* rules the code as found keeps calling the replicator with an EMPTY candidate list: a holder remembered from
-\* an earlier rule does not lower the shortage of a later rule - a phantom shortage that copies nothing.)
-Replicates(d) == \E k \in 1..Len(d.tasks) : Len(d.tasks[k].nodes) > 0
-Quiet(hs) == \A n \in hs : LET d == Decide27(n, hs, {}, {}) IN ~Replicates(d) /\ d.del = "none"
-NoTasks(hs) == \A n \in hs : ~Replicates(Decide27(n, hs, {}, {}))
-,\* a check "replicates" when it hands the replicator a task with at least one candidate node. (With overlapping
-\* rules the code as found keeps calling the replicator with an EMPTY candidate list: a holder remembered from
-\* an earlier rule does not lower the shortage of a later rule - a phantom shortage that copies nothing.)
-Replicates(d) == \E k \in 1..Len(d.tasks) : Len(d.tasks[k].nodes) > 0
-Quiet(hs) == \A n \in hs : LET d == Decide27(n, hs, {}, {}) IN ~Replicates(d) /\ d.del = "none"
-NoTasks(hs) == \A n \in hs : ~Replicates(Decide27(n, hs, {}, {}))
- \* a check "replicates" when it hands the replicator a task with at least one candidate node. (With overlapping
-\* rules the code as found keeps calling the replicator with an EMPTY candidate list: a holder remembered from
-\* an earlier rule does not lower the shortage of a later rule - a phantom shortage that copies nothing.)
-Replicates(d) == \E k \in 1..Len(d.tasks) : Len(d.tasks[k].nodes) > 0
-Quiet(hs) == \A n \in hs : LET d == Decide27(n, hs, {}, {}) IN ~Replicates(d) /\ d.del = "none"
-NoTasks(hs) == \A n \in hs : ~Replicates(Decide27(n, hs, {}, {}))
-r\* a check "replicates" when it hands the replicator a task with at least one candidate node. (With overlapping
-\* rules the code as found keeps calling the replicator with an EMPTY candidate list: a holder remembered from
-\* an earlier rule does not lower the shortage of a later rule - a phantom shortage that copies nothing.)
-Replicates(d) == \E k \in 1..Len(d.tasks) : Len(d.tasks[k].nodes) > 0
-Quiet(hs) == \A n \in hs : LET d == Decide27(n, hs, {}, {}) IN ~Replicates(d) /\ d.del = "none"
-NoTasks(hs) == \A n \in hs : ~Replicates(Decide27(n, hs, {}, {}))
-a\* a check "replicates" when it hands the replicator a task with at least one candidate node. (With overlapping
-\* rules the code as found keeps calling the replicator with an EMPTY candidate list: a holder remembered from
-\* an earlier rule does not lower the shortage of a later rule - a phantom shortage that copies nothing.)
-Replicates(d) == \E k \in 1..Len(d.tasks) : Len(d.tasks[k].nodes) > 0
-Quiet(hs) == \A n \in hs : LET d == Decide27(n, hs, {}, {}) IN ~Replicates(d) /\ d.del = "none"
-NoTasks(hs) == \A n \in hs : ~Replicates(Decide27(n, hs, {}, {}))
-n\* a check "replicates" when it hands the replicator a task with at least one candidate node. (With overlapping
-\* rules the code as found keeps calling the replicator with an EMPTY candidate list: a holder remembered from
-\* an earlier rule does not lower the shortage of a later rule - a phantom shortage that copies nothing.)
-Replicates(d) == \E k \in 1..Len(d.tasks) : Len(d.tasks[k].nodes) > 0
-Quiet(hs) == \A n \in hs : LET d == Decide27(n, hs, {}, {}) IN ~Replicates(d) /\ d.del = "none"
-NoTasks(hs) == \A n \in hs : ~Replicates(Decide27(n, hs, {}, {}))
-,\* a check "replicates" when it hands the replicator a task with at least one candidate node. (With overlapping
-\* rules the code as found keeps calling the replicator with an EMPTY candidate list: a holder remembered from
-\* an earlier rule does not lower the shortage of a later rule - a phantom shortage that copies nothing.)
-Replicates(d) == \E k \in 1..Len(d.tasks) : Len(d.tasks[k].nodes) > 0
-Quiet(hs) == \A n \in hs : LET d == Decide27(n, hs, {}, {}) IN ~Replicates(d) /\ d.del = "none"
-NoTasks(hs) == \A n \in hs : ~Replicates(Decide27(n, hs, {}, {}))
- \* a check "replicates" when it hands the replicator a task with at least one candidate node. (With overlapping
-\* rules the code as found keeps calling the replicator with an EMPTY candidate list: a holder remembered from
-\* an earlier rule does not lower the shortage of a later rule - a phantom shortage that copies nothing.)
-Replicates(d) == \E k \in 1..Len(d.tasks) : Len(d.tasks[k].nodes) > 0
-Quiet(hs) == \A n \in hs : LET d == Decide27(n, hs, {}, {}) IN ~Replicates(d) /\ d.del = "none"
-NoTasks(hs) == \A n \in hs : ~Replicates(Decide27(n, hs, {}, {}))
-r\* a check "replicates" when it hands the replicator a task with at least one candidate node. (With overlapping
-\* rules the code as found keeps calling the replicator with an EMPTY candidate list: a holder remembered from
-\* an earlier rule does not lower the shortage of a later rule - a phantom shortage that copies nothing.)
-Replicates(d) == \E k \in 1..Len(d.tasks) : Len(d.tasks[k].nodes) > 0
-Quiet(hs) == \A n \in hs : LET d == Decide27(n, hs, {}, {}) IN ~Replicates(d) /\ d.del = "none"
-NoTasks(hs) == \A n \in hs : ~Replicates(Decide27(n, hs, {}, {}))
-o\* a check "replicates" when it hands the replicator a task with at least one candidate node. (With overlapping
-\* rules the code as found keeps calling the replicator with an EMPTY candidate list: a holder remembered from
-\* an earlier rule does not lower the shortage of a later rule - a phantom shortage that copies nothing.)
-Replicates(d) == \E k \in 1..Len(d.tasks) : Len(d.tasks[k].nodes) > 0
-Quiet(hs) == \A n \in hs : LET d == Decide27(n, hs, {}, {}) IN ~Replicates(d) /\ d.del = "none"
-NoTasks(hs) == \A n \in hs : ~Replicates(Decide27(n, hs, {}, {}))
-u\* a check "replicates" when it hands the replicator a task with at least one candidate node. (With overlapping
-\* rules the code as found keeps calling the replicator with an EMPTY candidate list: a holder remembered from
-\* an earlier rule does not lower the shortage of a later rule - a phantom shortage that copies nothing.)
-Replicates(d) == \E k \in 1..Len(d.tasks) : Len(d.tasks[k].nodes) > 0
-Quiet(hs) == \A n \in hs : LET d == Decide27(n, hs, {}, {}) IN ~Replicates(d) /\ d.del = "none"
-NoTasks(hs) == \A n \in hs : ~Replicates(Decide27(n, hs, {}, {}))
-n\* a check "replicates" when it hands the replicator a task with at least one candidate node. (With overlapping
-\* rules the code as found keeps calling the replicator with an EMPTY candidate list: a holder remembered from
-\* an earlier rule does not lower the shortage of a later rule - a phantom shortage that copies nothing.)
-Replicates(d) == \E k \in 1..Len(d.tasks) : Len(d.tasks[k].nodes) > 0
-Quiet(hs) == \A n \in hs : LET d == Decide27(n, hs, {}, {}) IN ~Replicates(d) /\ d.del = "none"
-NoTasks(hs) == \A n \in hs : ~Replicates(Decide27(n, hs, {}, {}))
-d\* a check "replicates" when it hands the replicator a task with at least one candidate node. (With overlapping
-\* rules the code as found keeps calling the replicator with an EMPTY candidate list: a holder remembered from
-\* an earlier rule does not lower the shortage of a later rule - a phantom shortage that copies nothing.)
-Replicates(d) == \E k \in 1..Len(d.tasks) : Len(d.tasks[k].nodes) > 0
-Quiet(hs) == \A n \in hs : LET d == Decide27(n, hs, {}, {}) IN ~Replicates(d) /\ d.del = "none"
-NoTasks(hs) == \A n \in hs : ~Replicates(Decide27(n, hs, {}, {}))
-,\* a check "replicates" when it hands the replicator a task with at least one candidate node. (With overlapping
-\* rules the code as found keeps calling the replicator with an EMPTY candidate list: a holder remembered from
-\* an earlier rule does not lower the shortage of a later rule - a phantom shortage that copies nothing.)
-Replicates(d) == \E k \in 1..Len(d.tasks) : Len(d.tasks[k].nodes) > 0
-Quiet(hs) == \A n \in hs : LET d == Decide27(n, hs, {}, {}) IN ~Replicates(d) /\ d.del = "none"
-NoTasks(hs) == \A n \in hs : ~Replicates(Decide27(n, hs, {}, {}))
- \* a check "replicates" when it hands the replicator a task with at least one candidate node. (With overlapping
-\* rules the code as found keeps calling the replicator with an EMPTY candidate list: a holder remembered from
-\* an earlier rule does not lower the shortage of a later rule - a phantom shortage that copies nothing.)
-Replicates(d) == \E k \in 1..Len(d.tasks) : Len(d.tasks[k].nodes) > 0
-Quiet(hs) == \A n \in hs : LET d == Decide27(n, hs, {}, {}) IN ~Replicates(d) /\ d.del = "none"
-NoTasks(hs) == \A n \in hs : ~Replicates(Decide27(n, hs, {}, {}))
-l\* a check "replicates" when it hands the replicator a task with at least one candidate node. (With overlapping
-\* rules the code as found keeps calling the replicator with an EMPTY candidate list: a holder remembered from
-\* an earlier rule does not lower the shortage of a later rule - a phantom shortage that copies nothing.)
-Replicates(d) == \E k \in 1..Len(d.tasks) : Len(d.tasks[k].nodes) > 0
-Quiet(hs) == \A n \in hs : LET d == Decide27(n, hs, {}, {}) IN ~Replicates(d) /\ d.del = "none"
-NoTasks(hs) == \A n \in hs : ~Replicates(Decide27(n, hs, {}, {}))
-a\* a check "replicates" when it hands the replicator a task with at least one candidate node. (With overlapping
-\* rules the code as found keeps calling the replicator with an EMPTY candidate list: a holder remembered from
-\* an earlier rule does not lower the shortage of a later rule - a phantom shortage that copies nothing.)
-Replicates(d) == \E k \in 1..Len(d.tasks) : Len(d.tasks[k].nodes) > 0
-Quiet(hs) == \A n \in hs : LET d == Decide27(n, hs, {}, {}) IN ~Replicates(d) /\ d.del = "none"
-NoTasks(hs) == \A n \in hs : ~Replicates(Decide27(n, hs, {}, {}))
-s\* a check "replicates" when it hands the replicator a task with at least one candidate node. (With overlapping
-\* rules the code as found keeps calling the replicator with an EMPTY candidate list: a holder remembered from
-\* an earlier rule does not lower the shortage of a later rule - a phantom shortage that copies nothing.)
-Replicates(d) == \E k \in 1..Len(d.tasks) : Len(d.tasks[k].nodes) > 0
-Quiet(hs) == \A n \in hs : LET d == Decide27(n, hs, {}, {}) IN ~Replicates(d) /\ d.del = "none"
-NoTasks(hs) == \A n \in hs : ~Replicates(Decide27(n, hs, {}, {}))
-t\* a check "replicates" when it hands the replicator a task with at least one candidate node. (With overlapping
-\* rules the code as found keeps calling the replicator with an EMPTY candidate list: a holder remembered from
-\* an earlier rule does not lower the shortage of a later rule - a phantom shortage that copies nothing.)
-Replicates(d) == \E k \in 1..Len(d.tasks) : Len(d.tasks[k].nodes) > 0
-Quiet(hs) == \A n \in hs : LET d == Decide27(n, hs, {}, {}) IN ~Replicates(d) /\ d.del = "none"
-NoTasks(hs) == \A n \in hs : ~Replicates(Decide27(n, hs, {}, {}))
->\* a check "replicates" when it hands the replicator a task with at least one candidate node. (With overlapping
-\* rules the code as found keeps calling the replicator with an EMPTY candidate list: a holder remembered from
-\* an earlier rule does not lower the shortage of a later rule - a phantom shortage that copies nothing.)
-Replicates(d) == \E k \in 1..Len(d.tasks) : Len(d.tasks[k].nodes) > 0
-Quiet(hs) == \A n \in hs : LET d == Decide27(n, hs, {}, {}) IN ~Replicates(d) /\ d.del = "none"
-NoTasks(hs) == \A n \in hs : ~Replicates(Decide27(n, hs, {}, {}))
->\* a check "replicates" when it hands the replicator a task with at least one candidate node. (With overlapping
-\* rules the code as found keeps calling the replicator with an EMPTY candidate list: a holder remembered from
-\* an earlier rule does not lower the shortage of a later rule - a phantom shortage that copies nothing.)
-Replicates(d) == \E k \in 1..Len(d.tasks) : Len(d.tasks[k].nodes) > 0
-Quiet(hs) == \A n \in hs : LET d == Decide27(n, hs, {}, {}) IN ~Replicates(d) /\ d.del = "none"
-NoTasks(hs) == \A n \in hs : ~Replicates(Decide27(n, hs, {}, {}))
-
-\* a check "replicates" when it hands the replicator a task with at least one candidate node. (With overlapping
-\* rules the code as found keeps calling the replicator with an EMPTY candidate list: a holder remembered from
-\* an earlier rule does not lower the shortage of a later rule - a phantom shortage that copies nothing.)
-Replicates(d) == \E k \in 1..Len(d.tasks) : Len(d.tasks[k].nodes) > 0
-Quiet(hs) == \A n \in hs : LET d == Decide27(n, hs, {}, {}) IN ~Replicates(d) /\ d.del = "none"
-NoTasks(hs) == \A n \in hs : ~Replicates(Decide27(n, hs, {}, {}))
-
-\* a check "replicates" when it hands the replicator a task with at least one candidate node. (With overlapping
-\* rules the code as found keeps calling the replicator with an EMPTY candidate list: a holder remembered from
-\* an earlier rule does not lower the shortage of a later rule - a phantom shortage that copies nothing.)
-Replicates(d) == \E k \in 1..Len(d.tasks) : Len(d.tasks[k].nodes) > 0
-Quiet(hs) == \A n \in hs : LET d == Decide27(n, hs, {}, {}) IN ~Replicates(d) /\ d.del = "none"
-NoTasks(hs) == \A n \in hs : ~Replicates(Decide27(n, hs, {}, {}))
-S\* a check "replicates" when it hands the replicator a task with at least one candidate node. (With overlapping
-\* rules the code as found keeps calling the replicator with an EMPTY candidate list: a holder remembered from
-\* an earlier rule does not lower the shortage of a later rule - a phantom shortage that copies nothing.)
-Replicates(d) == \E k \in 1..Len(d.tasks) : Len(d.tasks[k].nodes) > 0
-Quiet(hs) == \A n \in hs : LET d == Decide27(n, hs, {}, {}) IN ~Replicates(d) /\ d.del = "none"
-NoTasks(hs) == \A n \in hs : ~Replicates(Decide27(n, hs, {}, {}))
-c\* a check "replicates" when it hands the replicator a task with at least one candidate node. (With overlapping
-\* rules the code as found keeps calling the replicator with an EMPTY candidate list: a holder remembered from
-\* an earlier rule does not lower the shortage of a later rule - a phantom shortage that copies nothing.)
-Replicates(d) == \E k \in 1..Len(d.tasks) : Len(d.tasks[k].nodes) > 0
-Quiet(hs) == \A n \in hs : LET d == Decide27(n, hs, {}, {}) IN ~Replicates(d) /\ d.del = "none"
-NoTasks(hs) == \A n \in hs : ~Replicates(Decide27(n, hs, {}, {}))
-n\* a check "replicates" when it hands the replicator a task with at least one candidate node. (With overlapping
-\* rules the code as found keeps calling the replicator with an EMPTY candidate list: a holder remembered from
-\* an earlier rule does not lower the shortage of a later rule - a phantom shortage that copies nothing.)
-Replicates(d) == \E k \in 1..Len(d.tasks) : Len(d.tasks[k].nodes) > 0
-Quiet(hs) == \A n \in hs : LET d == Decide27(n, hs, {}, {}) IN ~Replicates(d) /\ d.del = "none"
-NoTasks(hs) == \A n \in hs : ~Replicates(Decide27(n, hs, {}, {}))
-(\* a check "replicates" when it hands the replicator a task with at least one candidate node. (With overlapping
-\* rules the code as found keeps calling the replicator with an EMPTY candidate list: a holder remembered from
-\* an earlier rule does not lower the shortage of a later rule - a phantom shortage that copies nothing.)
-Replicates(d) == \E k \in 1..Len(d.tasks) : Len(d.tasks[k].nodes) > 0
-Quiet(hs) == \A n \in hs : LET d == Decide27(n, hs, {}, {}) IN ~Replicates(d) /\ d.del = "none"
-NoTasks(hs) == \A n \in hs : ~Replicates(Decide27(n, hs, {}, {}))
-n\* a check "replicates" when it hands the replicator a task with at least one candidate node. (With overlapping
-\* rules the code as found keeps calling the replicator with an EMPTY candidate list: a holder remembered from
-\* an earlier rule does not lower the shortage of a later rule - a phantom shortage that copies nothing.)
-Replicates(d) == \E k \in 1..Len(d.tasks) : Len(d.tasks[k].nodes) > 0
-Quiet(hs) == \A n \in hs : LET d == Decide27(n, hs, {}, {}) IN ~Replicates(d) /\ d.del = "none"
-NoTasks(hs) == \A n \in hs : ~Replicates(Decide27(n, hs, {}, {}))
-,\* a check "replicates" when it hands the replicator a task with at least one candidate node. (With overlapping
-\* rules the code as found keeps calling the replicator with an EMPTY candidate list: a holder remembered from
-\* an earlier rule does not lower the shortage of a later rule - a phantom shortage that copies nothing.)
-Replicates(d) == \E k \in 1..Len(d.tasks) : Len(d.tasks[k].nodes) > 0
-Quiet(hs) == \A n \in hs : LET d == Decide27(n, hs, {}, {}) IN ~Replicates(d) /\ d.del = "none"
-NoTasks(hs) == \A n \in hs : ~Replicates(Decide27(n, hs, {}, {}))
- \* a check "replicates" when it hands the replicator a task with at least one candidate node. (With overlapping
-\* rules the code as found keeps calling the replicator with an EMPTY candidate list: a holder remembered from
-\* an earlier rule does not lower the shortage of a later rule - a phantom shortage that copies nothing.)
-Replicates(d) == \E k \in 1..Len(d.tasks) : Len(d.tasks[k].nodes) > 0
-Quiet(hs) == \A n \in hs : LET d == Decide27(n, hs, {}, {}) IN ~Replicates(d) /\ d.del = "none"
-NoTasks(hs) == \A n \in hs : ~Replicates(Decide27(n, hs, {}, {}))
-h\* a check "replicates" when it hands the replicator a task with at least one candidate node. (With overlapping
-\* rules the code as found keeps calling the replicator with an EMPTY candidate list: a holder remembered from
-\* an earlier rule does not lower the shortage of a later rule - a phantom shortage that copies nothing.)
-Replicates(d) == \E k \in 1..Len(d.tasks) : Len(d.tasks[k].nodes) > 0
-Quiet(hs) == \A n \in hs : LET d == Decide27(n, hs, {}, {}) IN ~Replicates(d) /\ d.del = "none"
-NoTasks(hs) == \A n \in hs : ~Replicates(Decide27(n, hs, {}, {}))
-s\* a check "replicates" when it hands the replicator a task with at least one candidate node. (With overlapping
-\* rules the code as found keeps calling the replicator with an EMPTY candidate list: a holder remembered from
-\* an earlier rule does not lower the shortage of a later rule - a phantom shortage that copies nothing.)
-Replicates(d) == \E k \in 1..Len(d.tasks) : Len(d.tasks[k].nodes) > 0
-Quiet(hs) == \A n \in hs : LET d == Decide27(n, hs, {}, {}) IN ~Replicates(d) /\ d.del = "none"
-NoTasks(hs) == \A n \in hs : ~Replicates(Decide27(n, hs, {}, {}))
-,\* a check "replicates" when it hands the replicator a task with at least one candidate node. (With overlapping
-\* rules the code as found keeps calling the replicator with an EMPTY candidate list: a holder remembered from
-\* an earlier rule does not lower the shortage of a later rule - a phantom shortage that copies nothing.)
-Replicates(d) == \E k \in 1..Len(d.tasks) : Len(d.tasks[k].nodes) > 0
-Quiet(hs) == \A n \in hs : LET d == Decide27(n, hs, {}, {}) IN ~Replicates(d) /\ d.del = "none"
-NoTasks(hs) == \A n \in hs : ~Replicates(Decide27(n, hs, {}, {}))
- \* a check "replicates" when it hands the replicator a task with at least one candidate node. (With overlapping
-\* rules the code as found keeps calling the replicator with an EMPTY candidate list: a holder remembered from
-\* an earlier rule does not lower the shortage of a later rule - a phantom shortage that copies nothing.)
-Replicates(d) == \E k \in 1..Len(d.tasks) : Len(d.tasks[k].nodes) > 0
-Quiet(hs) == \A n \in hs : LET d == Decide27(n, hs, {}, {}) IN ~Replicates(d) /\ d.del = "none"
-NoTasks(hs) == \A n \in hs : ~Replicates(Decide27(n, hs, {}, {}))
-d\* a check "replicates" when it hands the replicator a task with at least one candidate node. (With overlapping
-\* rules the code as found keeps calling the replicator with an EMPTY candidate list: a holder remembered from
-\* an earlier rule does not lower the shortage of a later rule - a phantom shortage that copies nothing.)
-Replicates(d) == \E k \in 1..Len(d.tasks) : Len(d.tasks[k].nodes) > 0
-Quiet(hs) == \A n \in hs : LET d == Decide27(n, hs, {}, {}) IN ~Replicates(d) /\ d.del = "none"
-NoTasks(hs) == \A n \in hs : ~Replicates(Decide27(n, hs, {}, {}))
-o\* a check "replicates" when it hands the replicator a task with at least one candidate node. (With overlapping
-\* rules the code as found keeps calling the replicator with an EMPTY candidate list: a holder remembered from
-\* an earlier rule does not lower the shortage of a later rule - a phantom shortage that copies nothing.)
-Replicates(d) == \E k \in 1..Len(d.tasks) : Len(d.tasks[k].nodes) > 0
-Quiet(hs) == \A n \in hs : LET d == Decide27(n, hs, {}, {}) IN ~Replicates(d) /\ d.del = "none"
-NoTasks(hs) == \A n \in hs : ~Replicates(Decide27(n, hs, {}, {}))
-w\* a check "replicates" when it hands the replicator a task with at least one candidate node. (With overlapping
-\* rules the code as found keeps calling the replicator with an EMPTY candidate list: a holder remembered from
-\* an earlier rule does not lower the shortage of a later rule - a phantom shortage that copies nothing.)
-Replicates(d) == \E k \in 1..Len(d.tasks) : Len(d.tasks[k].nodes) > 0
-Quiet(hs) == \A n \in hs : LET d == Decide27(n, hs, {}, {}) IN ~Replicates(d) /\ d.del = "none"
-NoTasks(hs) == \A n \in hs : ~Replicates(Decide27(n, hs, {}, {}))
-n\* a check "replicates" when it hands the replicator a task with at least one candidate node. (With overlapping
-\* rules the code as found keeps calling the replicator with an EMPTY candidate list: a holder remembered from
-\* an earlier rule does not lower the shortage of a later rule - a phantom shortage that copies nothing.)
-Replicates(d) == \E k \in 1..Len(d.tasks) : Len(d.tasks[k].nodes) > 0
-Quiet(hs) == \A n \in hs : LET d == Decide27(n, hs, {}, {}) IN ~Replicates(d) /\ d.del = "none"
-NoTasks(hs) == \A n \in hs : ~Replicates(Decide27(n, hs, {}, {}))
-,\* a check "replicates" when it hands the replicator a task with at least one candidate node. (With overlapping
-\* rules the code as found keeps calling the replicator with an EMPTY candidate list: a holder remembered from
-\* an earlier rule does not lower the shortage of a later rule - a phantom shortage that copies nothing.)
-Replicates(d) == \E k \in 1..Len(d.tasks) : Len(d.tasks[k].nodes) > 0
-Quiet(hs) == \A n \in hs : LET d == Decide27(n, hs, {}, {}) IN ~Replicates(d) /\ d.del = "none"
-NoTasks(hs) == \A n \in hs : ~Replicates(Decide27(n, hs, {}, {}))
- \* a check "replicates" when it hands the replicator a task with at least one candidate node. (With overlapping
-\* rules the code as found keeps calling the replicator with an EMPTY candidate list: a holder remembered from
-\* an earlier rule does not lower the shortage of a later rule - a phantom shortage that copies nothing.)
-Replicates(d) == \E k \in 1..Len(d.tasks) : Len(d.tasks[k].nodes) > 0
-Quiet(hs) == \A n \in hs : LET d == Decide27(n, hs, {}, {}) IN ~Replicates(d) /\ d.del = "none"
-NoTasks(hs) == \A n \in hs : ~Replicates(Decide27(n, hs, {}, {}))
-r\* a check "replicates" when it hands the replicator a task with at least one candidate node. (With overlapping
-\* rules the code as found keeps calling the replicator with an EMPTY candidate list: a holder remembered from
-\* an earlier rule does not lower the shortage of a later rule - a phantom shortage that copies nothing.)
-Replicates(d) == \E k \in 1..Len(d.tasks) : Len(d.tasks[k].nodes) > 0
-Quiet(hs) == \A n \in hs : LET d == Decide27(n, hs, {}, {}) IN ~Replicates(d) /\ d.del = "none"
-NoTasks(hs) == \A n \in hs : ~Replicates(Decide27(n, hs, {}, {}))
-e\* a check "replicates" when it hands the replicator a task with at least one candidate node. (With overlapping
-\* rules the code as found keeps calling the replicator with an EMPTY candidate list: a holder remembered from
-\* an earlier rule does not lower the shortage of a later rule - a phantom shortage that copies nothing.)
-Replicates(d) == \E k \in 1..Len(d.tasks) : Len(d.tasks[k].nodes) > 0
-Quiet(hs) == \A n \in hs : LET d == Decide27(n, hs, {}, {}) IN ~Replicates(d) /\ d.del = "none"
-NoTasks(hs) == \A n \in hs : ~Replicates(Decide27(n, hs, {}, {}))
-f\* a check "replicates" when it hands the replicator a task with at least one candidate node. (With overlapping
-\* rules the code as found keeps calling the replicator with an EMPTY candidate list: a holder remembered from
-\* an earlier rule does not lower the shortage of a later rule - a phantom shortage that copies nothing.)
-Replicates(d) == \E k \in 1..Len(d.tasks) : Len(d.tasks[k].nodes) > 0
-Quiet(hs) == \A n \in hs : LET d == Decide27(n, hs, {}, {}) IN ~Replicates(d) /\ d.del = "none"
-NoTasks(hs) == \A n \in hs : ~Replicates(Decide27(n, hs, {}, {}))
-u\* a check "replicates" when it hands the replicator a task with at least one candidate node. (With overlapping
-\* rules the code as found keeps calling the replicator with an EMPTY candidate list: a holder remembered from
-\* an earlier rule does not lower the shortage of a later rule - a phantom shortage that copies nothing.)
-Replicates(d) == \E k \in 1..Len(d.tasks) : Len(d.tasks[k].nodes) > 0
-Quiet(hs) == \A n \in hs : LET d == Decide27(n, hs, {}, {}) IN ~Replicates(d) /\ d.del = "none"
-NoTasks(hs) == \A n \in hs : ~Replicates(Decide27(n, hs, {}, {}))
-s\* a check "replicates" when it hands the replicator a task with at least one candidate node. (With overlapping
-\* rules the code as found keeps calling the replicator with an EMPTY candidate list: a holder remembered from
-\* an earlier rule does not lower the shortage of a later rule - a phantom shortage that copies nothing.)
-Replicates(d) == \E k \in 1..Len(d.tasks) : Len(d.tasks[k].nodes) > 0
-Quiet(hs) == \A n \in hs : LET d == Decide27(n, hs, {}, {}) IN ~Replicates(d) /\ d.del = "none"
-NoTasks(hs) == \A n \in hs : ~Replicates(Decide27(n, hs, {}, {}))
-e\* a check "replicates" when it hands the replicator a task with at least one candidate node. (With overlapping
-\* rules the code as found keeps calling the replicator with an EMPTY candidate list: a holder remembered from
-\* an earlier rule does not lower the shortage of a later rule - a phantom shortage that copies nothing.)
-Replicates(d) == \E k \in 1..Len(d.tasks) : Len(d.tasks[k].nodes) > 0
-Quiet(hs) == \A n \in hs : LET d == Decide27(n, hs, {}, {}) IN ~Replicates(d) /\ d.del = "none"
-NoTasks(hs) == \A n \in hs : ~Replicates(Decide27(n, hs, {}, {}))
-)\* a check "replicates" when it hands the replicator a task with at least one candidate node. (With overlapping
-\* rules the code as found keeps calling the replicator with an EMPTY candidate list: a holder remembered from
-\* an earlier rule does not lower the shortage of a later rule - a phantom shortage that copies nothing.)
-Replicates(d) == \E k \in 1..Len(d.tasks) : Len(d.tasks[k].nodes) > 0
-Quiet(hs) == \A n \in hs : LET d == Decide27(n, hs, {}, {}) IN ~Replicates(d) /\ d.del = "none"
-NoTasks(hs) == \A n \in hs : ~Replicates(Decide27(n, hs, {}, {}))
- \* a check "replicates" when it hands the replicator a task with at least one candidate node. (With overlapping
-\* rules the code as found keeps calling the replicator with an EMPTY candidate list: a holder remembered from
-\* an earlier rule does not lower the shortage of a later rule - a phantom shortage that copies nothing.)
-Replicates(d) == \E k \in 1..Len(d.tasks) : Len(d.tasks[k].nodes) > 0
-Quiet(hs) == \A n \in hs : LET d == Decide27(n, hs, {}, {}) IN ~Replicates(d) /\ d.del = "none"
-NoTasks(hs) == \A n \in hs : ~Replicates(Decide27(n, hs, {}, {}))
-=\* a check "replicates" when it hands the replicator a task with at least one candidate node. (With overlapping
-\* rules the code as found keeps calling the replicator with an EMPTY candidate list: a holder remembered from
-\* an earlier rule does not lower the shortage of a later rule - a phantom shortage that copies nothing.)
-Replicates(d) == \E k \in 1..Len(d.tasks) : Len(d.tasks[k].nodes) > 0
-Quiet(hs) == \A n \in hs : LET d == Decide27(n, hs, {}, {}) IN ~Replicates(d) /\ d.del = "none"
-NoTasks(hs) == \A n \in hs : ~Replicates(Decide27(n, hs, {}, {}))
-=\* a check "replicates" when it hands the replicator a task with at least one candidate node. (With overlapping
-\* rules the code as found keeps calling the replicator with an EMPTY candidate list: a holder remembered from
-\* an earlier rule does not lower the shortage of a later rule - a phantom shortage that copies nothing.)
-Replicates(d) == \E k \in 1..Len(d.tasks) : Len(d.tasks[k].nodes) > 0
-Quiet(hs) == \A n \in hs : LET d == Decide27(n, hs, {}, {}) IN ~Replicates(d) /\ d.del = "none"
-NoTasks(hs) == \A n \in hs : ~Replicates(Decide27(n, hs, {}, {}))
-
-\* a check "replicates" when it hands the replicator a task with at least one candidate node. (With overlapping
-\* rules the code as found keeps calling the replicator with an EMPTY candidate list: a holder remembered from
-\* an earlier rule does not lower the shortage of a later rule - a phantom shortage that copies nothing.)
-Replicates(d) == \E k \in 1..Len(d.tasks) : Len(d.tasks[k].nodes) > 0
-Quiet(hs) == \A n \in hs : LET d == Decide27(n, hs, {}, {}) IN ~Replicates(d) /\ d.del = "none"
-NoTasks(hs) == \A n \in hs : ~Replicates(Decide27(n, hs, {}, {}))
- \* a check "replicates" when it hands the replicator a task with at least one candidate node. (With overlapping
-\* rules the code as found keeps calling the replicator with an EMPTY candidate list: a holder remembered from
-\* an earlier rule does not lower the shortage of a later rule - a phantom shortage that copies nothing.)
-Replicates(d) == \E k \in 1..Len(d.tasks) : Len(d.tasks[k].nodes) > 0
-Quiet(hs) == \A n \in hs : LET d == Decide27(n, hs, {}, {}) IN ~Replicates(d) /\ d.del = "none"
-NoTasks(hs) == \A n \in hs : ~Replicates(Decide27(n, hs, {}, {}))
- \* a check "replicates" when it hands the replicator a task with at least one candidate node. (With overlapping
-\* rules the code as found keeps calling the replicator with an EMPTY candidate list: a holder remembered from
-\* an earlier rule does not lower the shortage of a later rule - a phantom shortage that copies nothing.)
-Replicates(d) == \E k \in 1..Len(d.tasks) : Len(d.tasks[k].nodes) > 0
-Quiet(hs) == \A n \in hs : LET d == Decide27(n, hs, {}, {}) IN ~Replicates(d) /\ d.del = "none"
-NoTasks(hs) == \A n \in hs : ~Replicates(Decide27(n, hs, {}, {}))
-[\* a check "replicates" when it hands the replicator a task with at least one candidate node. (With overlapping
-\* rules the code as found keeps calling the replicator with an EMPTY candidate list: a holder remembered from
-\* an earlier rule does not lower the shortage of a later rule - a phantom shortage that copies nothing.)
-Replicates(d) == \E k \in 1..Len(d.tasks) : Len(d.tasks[k].nodes) > 0
-Quiet(hs) == \A n \in hs : LET d == Decide27(n, hs, {}, {}) IN ~Replicates(d) /\ d.del = "none"
-NoTasks(hs) == \A n \in hs : ~Replicates(Decide27(n, hs, {}, {}))
-t\* a check "replicates" when it hands the replicator a task with at least one candidate node. (With overlapping
-\* rules the code as found keeps calling the replicator with an EMPTY candidate list: a holder remembered from
-\* an earlier rule does not lower the shortage of a later rule - a phantom shortage that copies nothing.)
-Replicates(d) == \E k \in 1..Len(d.tasks) : Len(d.tasks[k].nodes) > 0
-Quiet(hs) == \A n \in hs : LET d == Decide27(n, hs, {}, {}) IN ~Replicates(d) /\ d.del = "none"
-NoTasks(hs) == \A n \in hs : ~Replicates(Decide27(n, hs, {}, {}))
-y\* a check "replicates" when it hands the replicator a task with at least one candidate node. (With overlapping
-\* rules the code as found keeps calling the replicator with an EMPTY candidate list: a holder remembered from
-\* an earlier rule does not lower the shortage of a later rule - a phantom shortage that copies nothing.)
-Replicates(d) == \E k \in 1..Len(d.tasks) : Len(d.tasks[k].nodes) > 0
-Quiet(hs) == \A n \in hs : LET d == Decide27(n, hs, {}, {}) IN ~Replicates(d) /\ d.del = "none"
-NoTasks(hs) == \A n \in hs : ~Replicates(Decide27(n, hs, {}, {}))
-p\* a check "replicates" when it hands the replicator a task with at least one candidate node. (With overlapping
-\* rules the code as found keeps calling the replicator with an EMPTY candidate list: a holder remembered from
-\* an earlier rule does not lower the shortage of a later rule - a phantom shortage that copies nothing.)
-Replicates(d) == \E k \in 1..Len(d.tasks) : Len(d.tasks[k].nodes) > 0
-Quiet(hs) == \A n \in hs : LET d == Decide27(n, hs, {}, {}) IN ~Replicates(d) /\ d.del = "none"
-NoTasks(hs) == \A n \in hs : ~Replicates(Decide27(n, hs, {}, {}))
- \* a check "replicates" when it hands the replicator a task with at least one candidate node. (With overlapping
-\* rules the code as found keeps calling the replicator with an EMPTY candidate list: a holder remembered from
-\* an earlier rule does not lower the shortage of a later rule - a phantom shortage that copies nothing.)
-Replicates(d) == \E k \in 1..Len(d.tasks) : Len(d.tasks[k].nodes) > 0
-Quiet(hs) == \A n \in hs : LET d == Decide27(n, hs, {}, {}) IN ~Replicates(d) /\ d.del = "none"
-NoTasks(hs) == \A n \in hs : ~Replicates(Decide27(n, hs, {}, {}))
-|\* a check "replicates" when it hands the replicator a task with at least one candidate node. (With overlapping
-\* rules the code as found keeps calling the replicator with an EMPTY candidate list: a holder remembered from
-\* an earlier rule does not lower the shortage of a later rule - a phantom shortage that copies nothing.)
-Replicates(d) == \E k \in 1..Len(d.tasks) : Len(d.tasks[k].nodes) > 0
-Quiet(hs) == \A n \in hs : LET d == Decide27(n, hs, {}, {}) IN ~Replicates(d) /\ d.del = "none"
-NoTasks(hs) == \A n \in hs : ~Replicates(Decide27(n, hs, {}, {}))
--\* a check "replicates" when it hands the replicator a task with at least one candidate node. (With overlapping
-\* rules the code as found keeps calling the replicator with an EMPTY candidate list: a holder remembered from
-\* an earlier rule does not lower the shortage of a later rule - a phantom shortage that copies nothing.)
-Replicates(d) == \E k \in 1..Len(d.tasks) : Len(d.tasks[k].nodes) > 0
-Quiet(hs) == \A n \in hs : LET d == Decide27(n, hs, {}, {}) IN ~Replicates(d) /\ d.del = "none"
-NoTasks(hs) == \A n \in hs : ~Replicates(Decide27(n, hs, {}, {}))
->\* a check "replicates" when it hands the replicator a task with at least one candidate node. (With overlapping
-\* rules the code as found keeps calling the replicator with an EMPTY candidate list: a holder remembered from
-\* an earlier rule does not lower the shortage of a later rule - a phantom shortage that copies nothing.)
-Replicates(d) == \E k \in 1..Len(d.tasks) : Len(d.tasks[k].nodes) > 0
-Quiet(hs) == \A n \in hs : LET d == Decide27(n, hs, {}, {}) IN ~Replicates(d) /\ d.del = "none"
-NoTasks(hs) == \A n \in hs : ~Replicates(Decide27(n, hs, {}, {}))
- \* a check "replicates" when it hands the replicator a task with at least one candidate node. (With overlapping
-\* rules the code as found keeps calling the replicator with an EMPTY candidate list: a holder remembered from
-\* an earlier rule does not lower the shortage of a later rule - a phantom shortage that copies nothing.)
-Replicates(d) == \E k \in 1..Len(d.tasks) : Len(d.tasks[k].nodes) > 0
-Quiet(hs) == \A n \in hs : LET d == Decide27(n, hs, {}, {}) IN ~Replicates(d) /\ d.del = "none"
-NoTasks(hs) == \A n \in hs : ~Replicates(Decide27(n, hs, {}, {}))
-"\* a check "replicates" when it hands the replicator a task with at least one candidate node. (With overlapping
-\* rules the code as found keeps calling the replicator with an EMPTY candidate list: a holder remembered from
-\* an earlier rule does not lower the shortage of a later rule - a phantom shortage that copies nothing.)
-Replicates(d) == \E k \in 1..Len(d.tasks) : Len(d.tasks[k].nodes) > 0
-Quiet(hs) == \A n \in hs : LET d == Decide27(n, hs, {}, {}) IN ~Replicates(d) /\ d.del = "none"
-NoTasks(hs) == \A n \in hs : ~Replicates(Decide27(n, hs, {}, {}))
-R\* a check "replicates" when it hands the replicator a task with at least one candidate node. (With overlapping
-\* rules the code as found keeps calling the replicator with an EMPTY candidate list: a holder remembered from
-\* an earlier rule does not lower the shortage of a later rule - a phantom shortage that copies nothing.)
-Replicates(d) == \E k \in 1..Len(d.tasks) : Len(d.tasks[k].nodes) > 0
-Quiet(hs) == \A n \in hs : LET d == Decide27(n, hs, {}, {}) IN ~Replicates(d) /\ d.del = "none"
-NoTasks(hs) == \A n \in hs : ~Replicates(Decide27(n, hs, {}, {}))
-E\* a check "replicates" when it hands the replicator a task with at least one candidate node. (With overlapping
-\* rules the code as found keeps calling the replicator with an EMPTY candidate list: a holder remembered from
-\* an earlier rule does not lower the shortage of a later rule - a phantom shortage that copies nothing.)
-Replicates(d) == \E k \in 1..Len(d.tasks) : Len(d.tasks[k].nodes) > 0
-Quiet(hs) == \A n \in hs : LET d == Decide27(n, hs, {}, {}) IN ~Replicates(d) /\ d.del = "none"
-NoTasks(hs) == \A n \in hs : ~Replicates(Decide27(n, hs, {}, {}))
-G\* a check "replicates" when it hands the replicator a task with at least one candidate node. (With overlapping
-\* rules the code as found keeps calling the replicator with an EMPTY candidate list: a holder remembered from
-\* an earlier rule does not lower the shortage of a later rule - a phantom shortage that copies nothing.)
-Replicates(d) == \E k \in 1..Len(d.tasks) : Len(d.tasks[k].nodes) > 0
-Quiet(hs) == \A n \in hs : LET d == Decide27(n, hs, {}, {}) IN ~Replicates(d) /\ d.del = "none"
-NoTasks(hs) == \A n \in hs : ~Replicates(Decide27(n, hs, {}, {}))
-"\* a check "replicates" when it hands the replicator a task with at least one candidate node. (With overlapping
-\* rules the code as found keeps calling the replicator with an EMPTY candidate list: a holder remembered from
-\* an earlier rule does not lower the shortage of a later rule - a phantom shortage that copies nothing.)
-Replicates(d) == \E k \in 1..Len(d.tasks) : Len(d.tasks[k].nodes) > 0
-Quiet(hs) == \A n \in hs : LET d == Decide27(n, hs, {}, {}) IN ~Replicates(d) /\ d.del = "none"
-NoTasks(hs) == \A n \in hs : ~Replicates(Decide27(n, hs, {}, {}))
-,\* a check "replicates" when it hands the replicator a task with at least one candidate node. (With overlapping
-\* rules the code as found keeps calling the replicator with an EMPTY candidate list: a holder remembered from
-\* an earlier rule does not lower the shortage of a later rule - a phantom shortage that copies nothing.)
-Replicates(d) == \E k \in 1..Len(d.tasks) : Len(d.tasks[k].nodes) > 0
-Quiet(hs) == \A n \in hs : LET d == Decide27(n, hs, {}, {}) IN ~Replicates(d) /\ d.del = "none"
-NoTasks(hs) == \A n \in hs : ~Replicates(Decide27(n, hs, {}, {}))
-
-\* a check "replicates" when it hands the replicator a task with at least one candidate node. (With overlapping
-\* rules the code as found keeps calling the replicator with an EMPTY candidate list: a holder remembered from
-\* an earlier rule does not lower the shortage of a later rule - a phantom shortage that copies nothing.)
-Replicates(d) == \E k \in 1..Len(d.tasks) : Len(d.tasks[k].nodes) > 0
-Quiet(hs) == \A n \in hs : LET d == Decide27(n, hs, {}, {}) IN ~Replicates(d) /\ d.del = "none"
-NoTasks(hs) == \A n \in hs : ~Replicates(Decide27(n, hs, {}, {}))
- \* a check "replicates" when it hands the replicator a task with at least one candidate node. (With overlapping
-\* rules the code as found keeps calling the replicator with an EMPTY candidate list: a holder remembered from
-\* an earlier rule does not lower the shortage of a later rule - a phantom shortage that copies nothing.)
-Replicates(d) == \E k \in 1..Len(d.tasks) : Len(d.tasks[k].nodes) > 0
-Quiet(hs) == \A n \in hs : LET d == Decide27(n, hs, {}, {}) IN ~Replicates(d) /\ d.del = "none"
-NoTasks(hs) == \A n \in hs : ~Replicates(Decide27(n, hs, {}, {}))
- \* a check "replicates" when it hands the replicator a task with at least one candidate node. (With overlapping
-\* rules the code as found keeps calling the replicator with an EMPTY candidate list: a holder remembered from
-\* an earlier rule does not lower the shortage of a later rule - a phantom shortage that copies nothing.)
-Replicates(d) == \E k \in 1..Len(d.tasks) : Len(d.tasks[k].nodes) > 0
-Quiet(hs) == \A n \in hs : LET d == Decide27(n, hs, {}, {}) IN ~Replicates(d) /\ d.del = "none"
-NoTasks(hs) == \A n \in hs : ~Replicates(Decide27(n, hs, {}, {}))
- \* a check "replicates" when it hands the replicator a task with at least one candidate node. (With overlapping
-\* rules the code as found keeps calling the replicator with an EMPTY candidate list: a holder remembered from
-\* an earlier rule does not lower the shortage of a later rule - a phantom shortage that copies nothing.)
-Replicates(d) == \E k \in 1..Len(d.tasks) : Len(d.tasks[k].nodes) > 0
-Quiet(hs) == \A n \in hs : LET d == Decide27(n, hs, {}, {}) IN ~Replicates(d) /\ d.del = "none"
-NoTasks(hs) == \A n \in hs : ~Replicates(Decide27(n, hs, {}, {}))
-r\* a check "replicates" when it hands the replicator a task with at least one candidate node. (With overlapping
-\* rules the code as found keeps calling the replicator with an EMPTY candidate list: a holder remembered from
-\* an earlier rule does not lower the shortage of a later rule - a phantom shortage that copies nothing.)
-Replicates(d) == \E k \in 1..Len(d.tasks) : Len(d.tasks[k].nodes) > 0
-Quiet(hs) == \A n \in hs : LET d == Decide27(n, hs, {}, {}) IN ~Replicates(d) /\ d.del = "none"
-NoTasks(hs) == \A n \in hs : ~Replicates(Decide27(n, hs, {}, {}))
-e\* a check "replicates" when it hands the replicator a task with at least one candidate node. (With overlapping
-\* rules the code as found keeps calling the replicator with an EMPTY candidate list: a holder remembered from
-\* an earlier rule does not lower the shortage of a later rule - a phantom shortage that copies nothing.)
-Replicates(d) == \E k \in 1..Len(d.tasks) : Len(d.tasks[k].nodes) > 0
-Quiet(hs) == \A n \in hs : LET d == Decide27(n, hs, {}, {}) IN ~Replicates(d) /\ d.del = "none"
-NoTasks(hs) == \A n \in hs : ~Replicates(Decide27(n, hs, {}, {}))
-p\* a check "replicates" when it hands the replicator a task with at least one candidate node. (With overlapping
-\* rules the code as found keeps calling the replicator with an EMPTY candidate list: a holder remembered from
-\* an earlier rule does not lower the shortage of a later rule - a phantom shortage that copies nothing.)
-Replicates(d) == \E k \in 1..Len(d.tasks) : Len(d.tasks[k].nodes) > 0
-Quiet(hs) == \A n \in hs : LET d == Decide27(n, hs, {}, {}) IN ~Replicates(d) /\ d.del = "none"
-NoTasks(hs) == \A n \in hs : ~Replicates(Decide27(n, hs, {}, {}))
- \* a check "replicates" when it hands the replicator a task with at least one candidate node. (With overlapping
-\* rules the code as found keeps calling the replicator with an EMPTY candidate list: a holder remembered from
-\* an earlier rule does not lower the shortage of a later rule - a phantom shortage that copies nothing.)
-Replicates(d) == \E k \in 1..Len(d.tasks) : Len(d.tasks[k].nodes) > 0
-Quiet(hs) == \A n \in hs : LET d == Decide27(n, hs, {}, {}) IN ~Replicates(d) /\ d.del = "none"
-NoTasks(hs) == \A n \in hs : ~Replicates(Decide27(n, hs, {}, {}))
-|\* a check "replicates" when it hands the replicator a task with at least one candidate node. (With overlapping
-\* rules the code as found keeps calling the replicator with an EMPTY candidate list: a holder remembered from
-\* an earlier rule does not lower the shortage of a later rule - a phantom shortage that copies nothing.)
-Replicates(d) == \E k \in 1..Len(d.tasks) : Len(d.tasks[k].nodes) > 0
-Quiet(hs) == \A n \in hs : LET d == Decide27(n, hs, {}, {}) IN ~Replicates(d) /\ d.del = "none"
-NoTasks(hs) == \A n \in hs : ~Replicates(Decide27(n, hs, {}, {}))
--\* a check "replicates" when it hands the replicator a task with at least one candidate node. (With overlapping
-\* rules the code as found keeps calling the replicator with an EMPTY candidate list: a holder remembered from
-\* an earlier rule does not lower the shortage of a later rule - a phantom shortage that copies nothing.)
-Replicates(d) == \E k \in 1..Len(d.tasks) : Len(d.tasks[k].nodes) > 0
-Quiet(hs) == \A n \in hs : LET d == Decide27(n, hs, {}, {}) IN ~Replicates(d) /\ d.del = "none"
-NoTasks(hs) == \A n \in hs : ~Replicates(Decide27(n, hs, {}, {}))
->\* a check "replicates" when it hands the replicator a task with at least one candidate node. (With overlapping
-\* rules the code as found keeps calling the replicator with an EMPTY candidate list: a holder remembered from
-\* an earlier rule does not lower the shortage of a later rule - a phantom shortage that copies nothing.)
-Replicates(d) == \E k \in 1..Len(d.tasks) : Len(d.tasks[k].nodes) > 0
-Quiet(hs) == \A n \in hs : LET d == Decide27(n, hs, {}, {}) IN ~Replicates(d) /\ d.del = "none"
-NoTasks(hs) == \A n \in hs : ~Replicates(Decide27(n, hs, {}, {}))
- \* a check "replicates" when it hands the replicator a task with at least one candidate node. (With overlapping
-\* rules the code as found keeps calling the replicator with an EMPTY candidate list: a holder remembered from
-\* an earlier rule does not lower the shortage of a later rule - a phantom shortage that copies nothing.)
-Replicates(d) == \E k \in 1..Len(d.tasks) : Len(d.tasks[k].nodes) > 0
-Quiet(hs) == \A n \in hs : LET d == Decide27(n, hs, {}, {}) IN ~Replicates(d) /\ d.del = "none"
-NoTasks(hs) == \A n \in hs : ~Replicates(Decide27(n, hs, {}, {}))
-[\* a check "replicates" when it hands the replicator a task with at least one candidate node. (With overlapping
-\* rules the code as found keeps calling the replicator with an EMPTY candidate list: a holder remembered from
-\* an earlier rule does not lower the shortage of a later rule - a phantom shortage that copies nothing.)
-Replicates(d) == \E k \in 1..Len(d.tasks) : Len(d.tasks[k].nodes) > 0
-Quiet(hs) == \A n \in hs : LET d == Decide27(n, hs, {}, {}) IN ~Replicates(d) /\ d.del = "none"
-NoTasks(hs) == \A n \in hs : ~Replicates(Decide27(n, hs, {}, {}))
-k\* a check "replicates" when it hands the replicator a task with at least one candidate node. (With overlapping
-\* rules the code as found keeps calling the replicator with an EMPTY candidate list: a holder remembered from
-\* an earlier rule does not lower the shortage of a later rule - a phantom shortage that copies nothing.)
-Replicates(d) == \E k \in 1..Len(d.tasks) : Len(d.tasks[k].nodes) > 0
-Quiet(hs) == \A n \in hs : LET d == Decide27(n, hs, {}, {}) IN ~Replicates(d) /\ d.del = "none"
-NoTasks(hs) == \A n \in hs : ~Replicates(Decide27(n, hs, {}, {}))
-x\* a check "replicates" when it hands the replicator a task with at least one candidate node. (With overlapping
-\* rules the code as found keeps calling the replicator with an EMPTY candidate list: a holder remembered from
-\* an earlier rule does not lower the shortage of a later rule - a phantom shortage that copies nothing.)
-Replicates(d) == \E k \in 1..Len(d.tasks) : Len(d.tasks[k].nodes) > 0
-Quiet(hs) == \A n \in hs : LET d == Decide27(n, hs, {}, {}) IN ~Replicates(d) /\ d.del = "none"
-NoTasks(hs) == \A n \in hs : ~Replicates(Decide27(n, hs, {}, {}))
- \* a check "replicates" when it hands the replicator a task with at least one candidate node. (With overlapping
-\* rules the code as found keeps calling the replicator with an EMPTY candidate list: a holder remembered from
-\* an earlier rule does not lower the shortage of a later rule - a phantom shortage that copies nothing.)
-Replicates(d) == \E k \in 1..Len(d.tasks) : Len(d.tasks[k].nodes) > 0
-Quiet(hs) == \A n \in hs : LET d == Decide27(n, hs, {}, {}) IN ~Replicates(d) /\ d.del = "none"
-NoTasks(hs) == \A n \in hs : ~Replicates(Decide27(n, hs, {}, {}))
-\\* a check "replicates" when it hands the replicator a task with at least one candidate node. (With overlapping
-\* rules the code as found keeps calling the replicator with an EMPTY candidate list: a holder remembered from
-\* an earlier rule does not lower the shortage of a later rule - a phantom shortage that copies nothing.)
-Replicates(d) == \E k \in 1..Len(d.tasks) : Len(d.tasks[k].nodes) > 0
-Quiet(hs) == \A n \in hs : LET d == Decide27(n, hs, {}, {}) IN ~Replicates(d) /\ d.del = "none"
-NoTasks(hs) == \A n \in hs : ~Replicates(Decide27(n, hs, {}, {}))
-i\* a check "replicates" when it hands the replicator a task with at least one candidate node. (With overlapping
-\* rules the code as found keeps calling the replicator with an EMPTY candidate list: a holder remembered from
-\* an earlier rule does not lower the shortage of a later rule - a phantom shortage that copies nothing.)
-Replicates(d) == \E k \in 1..Len(d.tasks) : Len(d.tasks[k].nodes) > 0
-Quiet(hs) == \A n \in hs : LET d == Decide27(n, hs, {}, {}) IN ~Replicates(d) /\ d.del = "none"
-NoTasks(hs) == \A n \in hs : ~Replicates(Decide27(n, hs, {}, {}))
-n\* a check "replicates" when it hands the replicator a task with at least one candidate node. (With overlapping
-\* rules the code as found keeps calling the replicator with an EMPTY candidate list: a holder remembered from
-\* an earlier rule does not lower the shortage of a later rule - a phantom shortage that copies nothing.)
-Replicates(d) == \E k \in 1..Len(d.tasks) : Len(d.tasks[k].nodes) > 0
-Quiet(hs) == \A n \in hs : LET d == Decide27(n, hs, {}, {}) IN ~Replicates(d) /\ d.del = "none"
-NoTasks(hs) == \A n \in hs : ~Replicates(Decide27(n, hs, {}, {}))
- \* a check "replicates" when it hands the replicator a task with at least one candidate node. (With overlapping
-\* rules the code as found keeps calling the replicator with an EMPTY candidate list: a holder remembered from
-\* an earlier rule does not lower the shortage of a later rule - a phantom shortage that copies nothing.)
-Replicates(d) == \E k \in 1..Len(d.tasks) : Len(d.tasks[k].nodes) > 0
-Quiet(hs) == \A n \in hs : LET d == Decide27(n, hs, {}, {}) IN ~Replicates(d) /\ d.del = "none"
-NoTasks(hs) == \A n \in hs : ~Replicates(Decide27(n, hs, {}, {}))
-1\* a check "replicates" when it hands the replicator a task with at least one candidate node. (With overlapping
-\* rules the code as found keeps calling the replicator with an EMPTY candidate list: a holder remembered from
-\* an earlier rule does not lower the shortage of a later rule - a phantom shortage that copies nothing.)
-Replicates(d) == \E k \in 1..Len(d.tasks) : Len(d.tasks[k].nodes) > 0
-Quiet(hs) == \A n \in hs : LET d == Decide27(n, hs, {}, {}) IN ~Replicates(d) /\ d.del = "none"
-NoTasks(hs) == \A n \in hs : ~Replicates(Decide27(n, hs, {}, {}))
-.\* a check "replicates" when it hands the replicator a task with at least one candidate node. (With overlapping
-\* rules the code as found keeps calling the replicator with an EMPTY candidate list: a holder remembered from
-\* an earlier rule does not lower the shortage of a later rule - a phantom shortage that copies nothing.)
-Replicates(d) == \E k \in 1..Len(d.tasks) : Len(d.tasks[k].nodes) > 0
-Quiet(hs) == \A n \in hs : LET d == Decide27(n, hs, {}, {}) IN ~Replicates(d) /\ d.del = "none"
-NoTasks(hs) == \A n \in hs : ~Replicates(Decide27(n, hs, {}, {}))
-.\* a check "replicates" when it hands the replicator a task with at least one candidate node. (With overlapping
-\* rules the code as found keeps calling the replicator with an EMPTY candidate list: a holder remembered from
-\* an earlier rule does not lower the shortage of a later rule - a phantom shortage that copies nothing.)
-Replicates(d) == \E k \in 1..Len(d.tasks) : Len(d.tasks[k].nodes) > 0
-Quiet(hs) == \A n \in hs : LET d == Decide27(n, hs, {}, {}) IN ~Replicates(d) /\ d.del = "none"
-NoTasks(hs) == \A n \in hs : ~Replicates(Decide27(n, hs, {}, {}))
-L\* a check "replicates" when it hands the replicator a task with at least one candidate node. (With overlapping
-\* rules the code as found keeps calling the replicator with an EMPTY candidate list: a holder remembered from
-\* an earlier rule does not lower the shortage of a later rule - a phantom shortage that copies nothing.)
-Replicates(d) == \E k \in 1..Len(d.tasks) : Len(d.tasks[k].nodes) > 0
-Quiet(hs) == \A n \in hs : LET d == Decide27(n, hs, {}, {}) IN ~Replicates(d) /\ d.del = "none"
-NoTasks(hs) == \A n \in hs : ~Replicates(Decide27(n, hs, {}, {}))
-e\* a check "replicates" when it hands the replicator a task with at least one candidate node. (With overlapping
-\* rules the code as found keeps calling the replicator with an EMPTY candidate list: a holder remembered from
-\* an earlier rule does not lower the shortage of a later rule - a phantom shortage that copies nothing.)
-Replicates(d) == \E k \in 1..Len(d.tasks) : Len(d.tasks[k].nodes) > 0
-Quiet(hs) == \A n \in hs : LET d == Decide27(n, hs, {}, {}) IN ~Replicates(d) /\ d.del = "none"
-NoTasks(hs) == \A n \in hs : ~Replicates(Decide27(n, hs, {}, {}))
-n\* a check "replicates" when it hands the replicator a task with at least one candidate node. (With overlapping
-\* rules the code as found keeps calling the replicator with an EMPTY candidate list: a holder remembered from
-\* an earlier rule does not lower the shortage of a later rule - a phantom shortage that copies nothing.)
-Replicates(d) == \E k \in 1..Len(d.tasks) : Len(d.tasks[k].nodes) > 0
-Quiet(hs) == \A n \in hs : LET d == Decide27(n, hs, {}, {}) IN ~Replicates(d) /\ d.del = "none"
-NoTasks(hs) == \A n \in hs : ~Replicates(Decide27(n, hs, {}, {}))
-(\* a check "replicates" when it hands the replicator a task with at least one candidate node. (With overlapping
-\* rules the code as found keeps calling the replicator with an EMPTY candidate list: a holder remembered from
-\* an earlier rule does not lower the shortage of a later rule - a phantom shortage that copies nothing.)
-Replicates(d) == \E k \in 1..Len(d.tasks) : Len(d.tasks[k].nodes) > 0
-Quiet(hs) == \A n \in hs : LET d == Decide27(n, hs, {}, {}) IN ~Replicates(d) /\ d.del = "none"
-NoTasks(hs) == \A n \in hs : ~Replicates(Decide27(n, hs, {}, {}))
-r\* a check "replicates" when it hands the replicator a task with at least one candidate node. (With overlapping
-\* rules the code as found keeps calling the replicator with an EMPTY candidate list: a holder remembered from
-\* an earlier rule does not lower the shortage of a later rule - a phantom shortage that copies nothing.)
-Replicates(d) == \E k \in 1..Len(d.tasks) : Len(d.tasks[k].nodes) > 0
-Quiet(hs) == \A n \in hs : LET d == Decide27(n, hs, {}, {}) IN ~Replicates(d) /\ d.del = "none"
-NoTasks(hs) == \A n \in hs : ~Replicates(Decide27(n, hs, {}, {}))
-u\* a check "replicates" when it hands the replicator a task with at least one candidate node. (With overlapping
-\* rules the code as found keeps calling the replicator with an EMPTY candidate list: a holder remembered from
-\* an earlier rule does not lower the shortage of a later rule - a phantom shortage that copies nothing.)
-Replicates(d) == \E k \in 1..Len(d.tasks) : Len(d.tasks[k].nodes) > 0
-Quiet(hs) == \A n \in hs : LET d == Decide27(n, hs, {}, {}) IN ~Replicates(d) /\ d.del = "none"
-NoTasks(hs) == \A n \in hs : ~Replicates(Decide27(n, hs, {}, {}))
-l\* a check "replicates" when it hands the replicator a task with at least one candidate node. (With overlapping
-\* rules the code as found keeps calling the replicator with an EMPTY candidate list: a holder remembered from
-\* an earlier rule does not lower the shortage of a later rule - a phantom shortage that copies nothing.)
-Replicates(d) == \E k \in 1..Len(d.tasks) : Len(d.tasks[k].nodes) > 0
-Quiet(hs) == \A n \in hs : LET d == Decide27(n, hs, {}, {}) IN ~Replicates(d) /\ d.del = "none"
-NoTasks(hs) == \A n \in hs : ~Replicates(Decide27(n, hs, {}, {}))
-e\* a check "replicates" when it hands the replicator a task with at least one candidate node. (With overlapping
-\* rules the code as found keeps calling the replicator with an EMPTY candidate list: a holder remembered from
-\* an earlier rule does not lower the shortage of a later rule - a phantom shortage that copies nothing.)
-Replicates(d) == \E k \in 1..Len(d.tasks) : Len(d.tasks[k].nodes) > 0
-Quiet(hs) == \A n \in hs : LET d == Decide27(n, hs, {}, {}) IN ~Replicates(d) /\ d.del = "none"
-NoTasks(hs) == \A n \in hs : ~Replicates(Decide27(n, hs, {}, {}))
-s\* a check "replicates" when it hands the replicator a task with at least one candidate node. (With overlapping
-\* rules the code as found keeps calling the replicator with an EMPTY candidate list: a holder remembered from
-\* an earlier rule does not lower the shortage of a later rule - a phantom shortage that copies nothing.)
-Replicates(d) == \E k \in 1..Len(d.tasks) : Len(d.tasks[k].nodes) > 0
-Quiet(hs) == \A n \in hs : LET d == Decide27(n, hs, {}, {}) IN ~Replicates(d) /\ d.del = "none"
-NoTasks(hs) == \A n \in hs : ~Replicates(Decide27(n, hs, {}, {}))
-)\* a check "replicates" when it hands the replicator a task with at least one candidate node. (With overlapping
-\* rules the code as found keeps calling the replicator with an EMPTY candidate list: a holder remembered from
-\* an earlier rule does not lower the shortage of a later rule - a phantom shortage that copies nothing.)
-Replicates(d) == \E k \in 1..Len(d.tasks) : Len(d.tasks[k].nodes) > 0
-Quiet(hs) == \A n \in hs : LET d == Decide27(n, hs, {}, {}) IN ~Replicates(d) /\ d.del = "none"
-NoTasks(hs) == \A n \in hs : ~Replicates(Decide27(n, hs, {}, {}))
- \* a check "replicates" when it hands the replicator a task with at least one candidate node. (With overlapping
-\* rules the code as found keeps calling the replicator with an EMPTY candidate list: a holder remembered from
-\* an earlier rule does not lower the shortage of a later rule - a phantom shortage that copies nothing.)
-Replicates(d) == \E k \in 1..Len(d.tasks) : Len(d.tasks[k].nodes) > 0
-Quiet(hs) == \A n \in hs : LET d == Decide27(n, hs, {}, {}) IN ~Replicates(d) /\ d.del = "none"
-NoTasks(hs) == \A n \in hs : ~Replicates(Decide27(n, hs, {}, {}))
-|\* a check "replicates" when it hands the replicator a task with at least one candidate node. (With overlapping
-\* rules the code as found keeps calling the replicator with an EMPTY candidate list: a holder remembered from
-\* an earlier rule does not lower the shortage of a later rule - a phantom shortage that copies nothing.)
-Replicates(d) == \E k \in 1..Len(d.tasks) : Len(d.tasks[k].nodes) > 0
-Quiet(hs) == \A n \in hs : LET d == Decide27(n, hs, {}, {}) IN ~Replicates(d) /\ d.del = "none"
-NoTasks(hs) == \A n \in hs : ~Replicates(Decide27(n, hs, {}, {}))
--\* a check "replicates" when it hands the replicator a task with at least one candidate node. (With overlapping
-\* rules the code as found keeps calling the replicator with an EMPTY candidate list: a holder remembered from
-\* an earlier rule does not lower the shortage of a later rule - a phantom shortage that copies nothing.)
-Replicates(d) == \E k \in 1..Len(d.tasks) : Len(d.tasks[k].nodes) > 0
-Quiet(hs) == \A n \in hs : LET d == Decide27(n, hs, {}, {}) IN ~Replicates(d) /\ d.del = "none"
-NoTasks(hs) == \A n \in hs : ~Replicates(Decide27(n, hs, {}, {}))
->\* a check "replicates" when it hands the replicator a task with at least one candidate node. (With overlapping
-\* rules the code as found keeps calling the replicator with an EMPTY candidate list: a holder remembered from
-\* an earlier rule does not lower the shortage of a later rule - a phantom shortage that copies nothing.)
-Replicates(d) == \E k \in 1..Len(d.tasks) : Len(d.tasks[k].nodes) > 0
-Quiet(hs) == \A n \in hs : LET d == Decide27(n, hs, {}, {}) IN ~Replicates(d) /\ d.del = "none"
-NoTasks(hs) == \A n \in hs : ~Replicates(Decide27(n, hs, {}, {}))
- \* a check "replicates" when it hands the replicator a task with at least one candidate node. (With overlapping
-\* rules the code as found keeps calling the replicator with an EMPTY candidate list: a holder remembered from
-\* an earlier rule does not lower the shortage of a later rule - a phantom shortage that copies nothing.)
-Replicates(d) == \E k \in 1..Len(d.tasks) : Len(d.tasks[k].nodes) > 0
-Quiet(hs) == \A n \in hs : LET d == Decide27(n, hs, {}, {}) IN ~Replicates(d) /\ d.del = "none"
-NoTasks(hs) == \A n \in hs : ~Replicates(Decide27(n, hs, {}, {}))
-[\* a check "replicates" when it hands the replicator a task with at least one candidate node. (With overlapping
-\* rules the code as found keeps calling the replicator with an EMPTY candidate list: a holder remembered from
-\* an earlier rule does not lower the shortage of a later rule - a phantom shortage that copies nothing.)
-Replicates(d) == \E k \in 1..Len(d.tasks) : Len(d.tasks[k].nodes) > 0
-Quiet(hs) == \A n \in hs : LET d == Decide27(n, hs, {}, {}) IN ~Replicates(d) /\ d.del = "none"
-NoTasks(hs) == \A n \in hs : ~Replicates(Decide27(n, hs, {}, {}))
-n\* a check "replicates" when it hands the replicator a task with at least one candidate node. (With overlapping
-\* rules the code as found keeps calling the replicator with an EMPTY candidate list: a holder remembered from
-\* an earlier rule does not lower the shortage of a later rule - a phantom shortage that copies nothing.)
-Replicates(d) == \E k \in 1..Len(d.tasks) : Len(d.tasks[k].nodes) > 0
-Quiet(hs) == \A n \in hs : LET d == Decide27(n, hs, {}, {}) IN ~Replicates(d) /\ d.del = "none"
-NoTasks(hs) == \A n \in hs : ~Replicates(Decide27(n, hs, {}, {}))
-o\* a check "replicates" when it hands the replicator a task with at least one candidate node. (With overlapping
-\* rules the code as found keeps calling the replicator with an EMPTY candidate list: a holder remembered from
-\* an earlier rule does not lower the shortage of a later rule - a phantom shortage that copies nothing.)
-Replicates(d) == \E k \in 1..Len(d.tasks) : Len(d.tasks[k].nodes) > 0
-Quiet(hs) == \A n \in hs : LET d == Decide27(n, hs, {}, {}) IN ~Replicates(d) /\ d.del = "none"
-NoTasks(hs) == \A n \in hs : ~Replicates(Decide27(n, hs, {}, {}))
-d\* a check "replicates" when it hands the replicator a task with at least one candidate node. (With overlapping
-\* rules the code as found keeps calling the replicator with an EMPTY candidate list: a holder remembered from
-\* an earlier rule does not lower the shortage of a later rule - a phantom shortage that copies nothing.)
-Replicates(d) == \E k \in 1..Len(d.tasks) : Len(d.tasks[k].nodes) > 0
-Quiet(hs) == \A n \in hs : LET d == Decide27(n, hs, {}, {}) IN ~Replicates(d) /\ d.del = "none"
-NoTasks(hs) == \A n \in hs : ~Replicates(Decide27(n, hs, {}, {}))
-e\* a check "replicates" when it hands the replicator a task with at least one candidate node. (With overlapping
-\* rules the code as found keeps calling the replicator with an EMPTY candidate list: a holder remembered from
-\* an earlier rule does not lower the shortage of a later rule - a phantom shortage that copies nothing.)
-Replicates(d) == \E k \in 1..Len(d.tasks) : Len(d.tasks[k].nodes) > 0
-Quiet(hs) == \A n \in hs : LET d == Decide27(n, hs, {}, {}) IN ~Replicates(d) /\ d.del = "none"
-NoTasks(hs) == \A n \in hs : ~Replicates(Decide27(n, hs, {}, {}))
-s\* a check "replicates" when it hands the replicator a task with at least one candidate node. (With overlapping
-\* rules the code as found keeps calling the replicator with an EMPTY candidate list: a holder remembered from
-\* an earlier rule does not lower the shortage of a later rule - a phantom shortage that copies nothing.)
-Replicates(d) == \E k \in 1..Len(d.tasks) : Len(d.tasks[k].nodes) > 0
-Quiet(hs) == \A n \in hs : LET d == Decide27(n, hs, {}, {}) IN ~Replicates(d) /\ d.del = "none"
-NoTasks(hs) == \A n \in hs : ~Replicates(Decide27(n, hs, {}, {}))
- \* a check "replicates" when it hands the replicator a task with at least one candidate node. (With overlapping
-\* rules the code as found keeps calling the replicator with an EMPTY candidate list: a holder remembered from
-\* an earlier rule does not lower the shortage of a later rule - a phantom shortage that copies nothing.)
-Replicates(d) == \E k \in 1..Len(d.tasks) : Len(d.tasks[k].nodes) > 0
-Quiet(hs) == \A n \in hs : LET d == Decide27(n, hs, {}, {}) IN ~Replicates(d) /\ d.del = "none"
-NoTasks(hs) == \A n \in hs : ~Replicates(Decide27(n, hs, {}, {}))
-|\* a check "replicates" when it hands the replicator a task with at least one candidate node. (With overlapping
-\* rules the code as found keeps calling the replicator with an EMPTY candidate list: a holder remembered from
-\* an earlier rule does not lower the shortage of a later rule - a phantom shortage that copies nothing.)
-Replicates(d) == \E k \in 1..Len(d.tasks) : Len(d.tasks[k].nodes) > 0
-Quiet(hs) == \A n \in hs : LET d == Decide27(n, hs, {}, {}) IN ~Replicates(d) /\ d.del = "none"
-NoTasks(hs) == \A n \in hs : ~Replicates(Decide27(n, hs, {}, {}))
--\* a check "replicates" when it hands the replicator a task with at least one candidate node. (With overlapping
-\* rules the code as found keeps calling the replicator with an EMPTY candidate list: a holder remembered from
-\* an earlier rule does not lower the shortage of a later rule - a phantom shortage that copies nothing.)
-Replicates(d) == \E k \in 1..Len(d.tasks) : Len(d.tasks[k].nodes) > 0
-Quiet(hs) == \A n \in hs : LET d == Decide27(n, hs, {}, {}) IN ~Replicates(d) /\ d.del = "none"
-NoTasks(hs) == \A n \in hs : ~Replicates(Decide27(n, hs, {}, {}))
->\* a check "replicates" when it hands the replicator a task with at least one candidate node. (With overlapping
-\* rules the code as found keeps calling the replicator with an EMPTY candidate list: a holder remembered from
-\* an earlier rule does not lower the shortage of a later rule - a phantom shortage that copies nothing.)
-Replicates(d) == \E k \in 1..Len(d.tasks) : Len(d.tasks[k].nodes) > 0
-Quiet(hs) == \A n \in hs : LET d == Decide27(n, hs, {}, {}) IN ~Replicates(d) /\ d.del = "none"
-NoTasks(hs) == \A n \in hs : ~Replicates(Decide27(n, hs, {}, {}))
- \* a check "replicates" when it hands the replicator a task with at least one candidate node. (With overlapping
-\* rules the code as found keeps calling the replicator with an EMPTY candidate list: a holder remembered from
-\* an earlier rule does not lower the shortage of a later rule - a phantom shortage that copies nothing.)
-Replicates(d) == \E k \in 1..Len(d.tasks) : Len(d.tasks[k].nodes) > 0
-Quiet(hs) == \A n \in hs : LET d == Decide27(n, hs, {}, {}) IN ~Replicates(d) /\ d.del = "none"
-NoTasks(hs) == \A n \in hs : ~Replicates(Decide27(n, hs, {}, {}))
-[\* a check "replicates" when it hands the replicator a task with at least one candidate node. (With overlapping
-\* rules the code as found keeps calling the replicator with an EMPTY candidate list: a holder remembered from
-\* an earlier rule does not lower the shortage of a later rule - a phantom shortage that copies nothing.)
-Replicates(d) == \E k \in 1..Len(d.tasks) : Len(d.tasks[k].nodes) > 0
-Quiet(hs) == \A n \in hs : LET d == Decide27(n, hs, {}, {}) IN ~Replicates(d) /\ d.del = "none"
-NoTasks(hs) == \A n \in hs : ~Replicates(Decide27(n, hs, {}, {}))
-i\* a check "replicates" when it hands the replicator a task with at least one candidate node. (With overlapping
-\* rules the code as found keeps calling the replicator with an EMPTY candidate list: a holder remembered from
-\* an earlier rule does not lower the shortage of a later rule - a phantom shortage that copies nothing.)
-Replicates(d) == \E k \in 1..Len(d.tasks) : Len(d.tasks[k].nodes) > 0
-Quiet(hs) == \A n \in hs : LET d == Decide27(n, hs, {}, {}) IN ~Replicates(d) /\ d.del = "none"
-NoTasks(hs) == \A n \in hs : ~Replicates(Decide27(n, hs, {}, {}))
-x\* a check "replicates" when it hands the replicator a task with at least one candidate node. (With overlapping
-\* rules the code as found keeps calling the replicator with an EMPTY candidate list: a holder remembered from
-\* an earlier rule does not lower the shortage of a later rule - a phantom shortage that copies nothing.)
-Replicates(d) == \E k \in 1..Len(d.tasks) : Len(d.tasks[k].nodes) > 0
-Quiet(hs) == \A n \in hs : LET d == Decide27(n, hs, {}, {}) IN ~Replicates(d) /\ d.del = "none"
-NoTasks(hs) == \A n \in hs : ~Replicates(Decide27(n, hs, {}, {}))
- \* a check "replicates" when it hands the replicator a task with at least one candidate node. (With overlapping
-\* rules the code as found keeps calling the replicator with an EMPTY candidate list: a holder remembered from
-\* an earlier rule does not lower the shortage of a later rule - a phantom shortage that copies nothing.)
-Replicates(d) == \E k \in 1..Len(d.tasks) : Len(d.tasks[k].nodes) > 0
-Quiet(hs) == \A n \in hs : LET d == Decide27(n, hs, {}, {}) IN ~Replicates(d) /\ d.del = "none"
-NoTasks(hs) == \A n \in hs : ~Replicates(Decide27(n, hs, {}, {}))
-\\* a check "replicates" when it hands the replicator a task with at least one candidate node. (With overlapping
-\* rules the code as found keeps calling the replicator with an EMPTY candidate list: a holder remembered from
-\* an earlier rule does not lower the shortage of a later rule - a phantom shortage that copies nothing.)
-Replicates(d) == \E k \in 1..Len(d.tasks) : Len(d.tasks[k].nodes) > 0
-Quiet(hs) == \A n \in hs : LET d == Decide27(n, hs, {}, {}) IN ~Replicates(d) /\ d.del = "none"
-NoTasks(hs) == \A n \in hs : ~Replicates(Decide27(n, hs, {}, {}))
-i\* a check "replicates" when it hands the replicator a task with at least one candidate node. (With overlapping
-\* rules the code as found keeps calling the replicator with an EMPTY candidate list: a holder remembered from
-\* an earlier rule does not lower the shortage of a later rule - a phantom shortage that copies nothing.)
-Replicates(d) == \E k \in 1..Len(d.tasks) : Len(d.tasks[k].nodes) > 0
-Quiet(hs) == \A n \in hs : LET d == Decide27(n, hs, {}, {}) IN ~Replicates(d) /\ d.del = "none"
-NoTasks(hs) == \A n \in hs : ~Replicates(Decide27(n, hs, {}, {}))
-n\* a check "replicates" when it hands the replicator a task with at least one candidate node. (With overlapping
-\* rules the code as found keeps calling the replicator with an EMPTY candidate list: a holder remembered from
-\* an earlier rule does not lower the shortage of a later rule - a phantom shortage that copies nothing.)
-Replicates(d) == \E k \in 1..Len(d.tasks) : Len(d.tasks[k].nodes) > 0
-Quiet(hs) == \A n \in hs : LET d == Decide27(n, hs, {}, {}) IN ~Replicates(d) /\ d.del = "none"
-NoTasks(hs) == \A n \in hs : ~Replicates(Decide27(n, hs, {}, {}))
- \* a check "replicates" when it hands the replicator a task with at least one candidate node. (With overlapping
-\* rules the code as found keeps calling the replicator with an EMPTY candidate list: a holder remembered from
-\* an earlier rule does not lower the shortage of a later rule - a phantom shortage that copies nothing.)
-Replicates(d) == \E k \in 1..Len(d.tasks) : Len(d.tasks[k].nodes) > 0
-Quiet(hs) == \A n \in hs : LET d == Decide27(n, hs, {}, {}) IN ~Replicates(d) /\ d.del = "none"
-NoTasks(hs) == \A n \in hs : ~Replicates(Decide27(n, hs, {}, {}))
-1\* a check "replicates" when it hands the replicator a task with at least one candidate node. (With overlapping
-\* rules the code as found keeps calling the replicator with an EMPTY candidate list: a holder remembered from
-\* an earlier rule does not lower the shortage of a later rule - a phantom shortage that copies nothing.)
-Replicates(d) == \E k \in 1..Len(d.tasks) : Len(d.tasks[k].nodes) > 0
-Quiet(hs) == \A n \in hs : LET d == Decide27(n, hs, {}, {}) IN ~Replicates(d) /\ d.del = "none"
-NoTasks(hs) == \A n \in hs : ~Replicates(Decide27(n, hs, {}, {}))
-.\* a check "replicates" when it hands the replicator a task with at least one candidate node. (With overlapping
-\* rules the code as found keeps calling the replicator with an EMPTY candidate list: a holder remembered from
-\* an earlier rule does not lower the shortage of a later rule - a phantom shortage that copies nothing.)
-Replicates(d) == \E k \in 1..Len(d.tasks) : Len(d.tasks[k].nodes) > 0
-Quiet(hs) == \A n \in hs : LET d == Decide27(n, hs, {}, {}) IN ~Replicates(d) /\ d.del = "none"
-NoTasks(hs) == \A n \in hs : ~Replicates(Decide27(n, hs, {}, {}))
-.\* a check "replicates" when it hands the replicator a task with at least one candidate node. (With overlapping
-\* rules the code as found keeps calling the replicator with an EMPTY candidate list: a holder remembered from
-\* an earlier rule does not lower the shortage of a later rule - a phantom shortage that copies nothing.)
-Replicates(d) == \E k \in 1..Len(d.tasks) : Len(d.tasks[k].nodes) > 0
-Quiet(hs) == \A n \in hs : LET d == Decide27(n, hs, {}, {}) IN ~Replicates(d) /\ d.del = "none"
-NoTasks(hs) == \A n \in hs : ~Replicates(Decide27(n, hs, {}, {}))
-L\* a check "replicates" when it hands the replicator a task with at least one candidate node. (With overlapping
-\* rules the code as found keeps calling the replicator with an EMPTY candidate list: a holder remembered from
-\* an earlier rule does not lower the shortage of a later rule - a phantom shortage that copies nothing.)
-Replicates(d) == \E k \in 1..Len(d.tasks) : Len(d.tasks[k].nodes) > 0
-Quiet(hs) == \A n \in hs : LET d == Decide27(n, hs, {}, {}) IN ~Replicates(d) /\ d.del = "none"
-NoTasks(hs) == \A n \in hs : ~Replicates(Decide27(n, hs, {}, {}))
-e\* a check "replicates" when it hands the replicator a task with at least one candidate node. (With overlapping
-\* rules the code as found keeps calling the replicator with an EMPTY candidate list: a holder remembered from
-\* an earlier rule does not lower the shortage of a later rule - a phantom shortage that copies nothing.)
-Replicates(d) == \E k \in 1..Len(d.tasks) : Len(d.tasks[k].nodes) > 0
-Quiet(hs) == \A n \in hs : LET d == Decide27(n, hs, {}, {}) IN ~Replicates(d) /\ d.del = "none"
-NoTasks(hs) == \A n \in hs : ~Replicates(Decide27(n, hs, {}, {}))
-n\* a check "replicates" when it hands the replicator a task with at least one candidate node. (With overlapping
-\* rules the code as found keeps calling the replicator with an EMPTY candidate list: a holder remembered from
-\* an earlier rule does not lower the shortage of a later rule - a phantom shortage that copies nothing.)
-Replicates(d) == \E k \in 1..Len(d.tasks) : Len(d.tasks[k].nodes) > 0
-Quiet(hs) == \A n \in hs : LET d == Decide27(n, hs, {}, {}) IN ~Replicates(d) /\ d.del = "none"
-NoTasks(hs) == \A n \in hs : ~Replicates(Decide27(n, hs, {}, {}))
-(\* a check "replicates" when it hands the replicator a task with at least one candidate node. (With overlapping
-\* rules the code as found keeps calling the replicator with an EMPTY candidate list: a holder remembered from
-\* an earlier rule does not lower the shortage of a later rule - a phantom shortage that copies nothing.)
-Replicates(d) == \E k \in 1..Len(d.tasks) : Len(d.tasks[k].nodes) > 0
-Quiet(hs) == \A n \in hs : LET d == Decide27(n, hs, {}, {}) IN ~Replicates(d) /\ d.del = "none"
-NoTasks(hs) == \A n \in hs : ~Replicates(Decide27(n, hs, {}, {}))
-r\* a check "replicates" when it hands the replicator a task with at least one candidate node. (With overlapping
-\* rules the code as found keeps calling the replicator with an EMPTY candidate list: a holder remembered from
-\* an earlier rule does not lower the shortage of a later rule - a phantom shortage that copies nothing.)
-Replicates(d) == \E k \in 1..Len(d.tasks) : Len(d.tasks[k].nodes) > 0
-Quiet(hs) == \A n \in hs : LET d == Decide27(n, hs, {}, {}) IN ~Replicates(d) /\ d.del = "none"
-NoTasks(hs) == \A n \in hs : ~Replicates(Decide27(n, hs, {}, {}))
-u\* a check "replicates" when it hands the replicator a task with at least one candidate node. (With overlapping
-\* rules the code as found keeps calling the replicator with an EMPTY candidate list: a holder remembered from
-\* an earlier rule does not lower the shortage of a later rule - a phantom shortage that copies nothing.)
-Replicates(d) == \E k \in 1..Len(d.tasks) : Len(d.tasks[k].nodes) > 0
-Quiet(hs) == \A n \in hs : LET d == Decide27(n, hs, {}, {}) IN ~Replicates(d) /\ d.del = "none"
-NoTasks(hs) == \A n \in hs : ~Replicates(Decide27(n, hs, {}, {}))
-l\* a check "replicates" when it hands the replicator a task with at least one candidate node. (With overlapping
-\* rules the code as found keeps calling the replicator with an EMPTY candidate list: a holder remembered from
-\* an earlier rule does not lower the shortage of a later rule - a phantom shortage that copies nothing.)
-Replicates(d) == \E k \in 1..Len(d.tasks) : Len(d.tasks[k].nodes) > 0
-Quiet(hs) == \A n \in hs : LET d == Decide27(n, hs, {}, {}) IN ~Replicates(d) /\ d.del = "none"
-NoTasks(hs) == \A n \in hs : ~Replicates(Decide27(n, hs, {}, {}))
-e\* a check "replicates" when it hands the replicator a task with at least one candidate node. (With overlapping
-\* rules the code as found keeps calling the replicator with an EMPTY candidate list: a holder remembered from
-\* an earlier rule does not lower the shortage of a later rule - a phantom shortage that copies nothing.)
-Replicates(d) == \E k \in 1..Len(d.tasks) : Len(d.tasks[k].nodes) > 0
-Quiet(hs) == \A n \in hs : LET d == Decide27(n, hs, {}, {}) IN ~Replicates(d) /\ d.del = "none"
-NoTasks(hs) == \A n \in hs : ~Replicates(Decide27(n, hs, {}, {}))
-s\* a check "replicates" when it hands the replicator a task with at least one candidate node. (With overlapping
-\* rules the code as found keeps calling the replicator with an EMPTY candidate list: a holder remembered from
-\* an earlier rule does not lower the shortage of a later rule - a phantom shortage that copies nothing.)
-Replicates(d) == \E k \in 1..Len(d.tasks) : Len(d.tasks[k].nodes) > 0
-Quiet(hs) == \A n \in hs : LET d == Decide27(n, hs, {}, {}) IN ~Replicates(d) /\ d.del = "none"
-NoTasks(hs) == \A n \in hs : ~Replicates(Decide27(n, hs, {}, {}))
-[\* a check "replicates" when it hands the replicator a task with at least one candidate node. (With overlapping
-\* rules the code as found keeps calling the replicator with an EMPTY candidate list: a holder remembered from
-\* an earlier rule does not lower the shortage of a later rule - a phantom shortage that copies nothing.)
-Replicates(d) == \E k \in 1..Len(d.tasks) : Len(d.tasks[k].nodes) > 0
-Quiet(hs) == \A n \in hs : LET d == Decide27(n, hs, {}, {}) IN ~Replicates(d) /\ d.del = "none"
-NoTasks(hs) == \A n \in hs : ~Replicates(Decide27(n, hs, {}, {}))
-k\* a check "replicates" when it hands the replicator a task with at least one candidate node. (With overlapping
-\* rules the code as found keeps calling the replicator with an EMPTY candidate list: a holder remembered from
-\* an earlier rule does not lower the shortage of a later rule - a phantom shortage that copies nothing.)
-Replicates(d) == \E k \in 1..Len(d.tasks) : Len(d.tasks[k].nodes) > 0
-Quiet(hs) == \A n \in hs : LET d == Decide27(n, hs, {}, {}) IN ~Replicates(d) /\ d.del = "none"
-NoTasks(hs) == \A n \in hs : ~Replicates(Decide27(n, hs, {}, {}))
-x\* a check "replicates" when it hands the replicator a task with at least one candidate node. (With overlapping
-\* rules the code as found keeps calling the replicator with an EMPTY candidate list: a holder remembered from
-\* an earlier rule does not lower the shortage of a later rule - a phantom shortage that copies nothing.)
-Replicates(d) == \E k \in 1..Len(d.tasks) : Len(d.tasks[k].nodes) > 0
-Quiet(hs) == \A n \in hs : LET d == Decide27(n, hs, {}, {}) IN ~Replicates(d) /\ d.del = "none"
-NoTasks(hs) == \A n \in hs : ~Replicates(Decide27(n, hs, {}, {}))
-]\* a check "replicates" when it hands the replicator a task with at least one candidate node. (With overlapping
-\* rules the code as found keeps calling the replicator with an EMPTY candidate list: a holder remembered from
-\* an earlier rule does not lower the shortage of a later rule - a phantom shortage that copies nothing.)
-Replicates(d) == \E k \in 1..Len(d.tasks) : Len(d.tasks[k].nodes) > 0
-Quiet(hs) == \A n \in hs : LET d == Decide27(n, hs, {}, {}) IN ~Replicates(d) /\ d.del = "none"
-NoTasks(hs) == \A n \in hs : ~Replicates(Decide27(n, hs, {}, {}))
-.\* a check "replicates" when it hands the replicator a task with at least one candidate node. (With overlapping
-\* rules the code as found keeps calling the replicator with an EMPTY candidate list: a holder remembered from
-\* an earlier rule does not lower the shortage of a later rule - a phantom shortage that copies nothing.)
-Replicates(d) == \E k \in 1..Len(d.tasks) : Len(d.tasks[k].nodes) > 0
-Quiet(hs) == \A n \in hs : LET d == Decide27(n, hs, {}, {}) IN ~Replicates(d) /\ d.del = "none"
-NoTasks(hs) == \A n \in hs : ~Replicates(Decide27(n, hs, {}, {}))
-n\* a check "replicates" when it hands the replicator a task with at least one candidate node. (With overlapping
-\* rules the code as found keeps calling the replicator with an EMPTY candidate list: a holder remembered from
-\* an earlier rule does not lower the shortage of a later rule - a phantom shortage that copies nothing.)
-Replicates(d) == \E k \in 1..Len(d.tasks) : Len(d.tasks[k].nodes) > 0
-Quiet(hs) == \A n \in hs : LET d == Decide27(n, hs, {}, {}) IN ~Replicates(d) /\ d.del = "none"
-NoTasks(hs) == \A n \in hs : ~Replicates(Decide27(n, hs, {}, {}))
-o\* a check "replicates" when it hands the replicator a task with at least one candidate node. (With overlapping
-\* rules the code as found keeps calling the replicator with an EMPTY candidate list: a holder remembered from
-\* an earlier rule does not lower the shortage of a later rule - a phantom shortage that copies nothing.)
-Replicates(d) == \E k \in 1..Len(d.tasks) : Len(d.tasks[k].nodes) > 0
-Quiet(hs) == \A n \in hs : LET d == Decide27(n, hs, {}, {}) IN ~Replicates(d) /\ d.del = "none"
-NoTasks(hs) == \A n \in hs : ~Replicates(Decide27(n, hs, {}, {}))
-d\* a check "replicates" when it hands the replicator a task with at least one candidate node. (With overlapping
-\* rules the code as found keeps calling the replicator with an EMPTY candidate list: a holder remembered from
-\* an earlier rule does not lower the shortage of a later rule - a phantom shortage that copies nothing.)
-Replicates(d) == \E k \in 1..Len(d.tasks) : Len(d.tasks[k].nodes) > 0
-Quiet(hs) == \A n \in hs : LET d == Decide27(n, hs, {}, {}) IN ~Replicates(d) /\ d.del = "none"
-NoTasks(hs) == \A n \in hs : ~Replicates(Decide27(n, hs, {}, {}))
-e\* a check "replicates" when it hands the replicator a task with at least one candidate node. (With overlapping
-\* rules the code as found keeps calling the replicator with an EMPTY candidate list: a holder remembered from
-\* an earlier rule does not lower the shortage of a later rule - a phantom shortage that copies nothing.)
-Replicates(d) == \E k \in 1..Len(d.tasks) : Len(d.tasks[k].nodes) > 0
-Quiet(hs) == \A n \in hs : LET d == Decide27(n, hs, {}, {}) IN ~Replicates(d) /\ d.del = "none"
-NoTasks(hs) == \A n \in hs : ~Replicates(Decide27(n, hs, {}, {}))
-s\* a check "replicates" when it hands the replicator a task with at least one candidate node. (With overlapping
-\* rules the code as found keeps calling the replicator with an EMPTY candidate list: a holder remembered from
-\* an earlier rule does not lower the shortage of a later rule - a phantom shortage that copies nothing.)
-Replicates(d) == \E k \in 1..Len(d.tasks) : Len(d.tasks[k].nodes) > 0
-Quiet(hs) == \A n \in hs : LET d == Decide27(n, hs, {}, {}) IN ~Replicates(d) /\ d.del = "none"
-NoTasks(hs) == \A n \in hs : ~Replicates(Decide27(n, hs, {}, {}))
-)\* a check "replicates" when it hands the replicator a task with at least one candidate node. (With overlapping
-\* rules the code as found keeps calling the replicator with an EMPTY candidate list: a holder remembered from
-\* an earlier rule does not lower the shortage of a later rule - a phantom shortage that copies nothing.)
-Replicates(d) == \E k \in 1..Len(d.tasks) : Len(d.tasks[k].nodes) > 0
-Quiet(hs) == \A n \in hs : LET d == Decide27(n, hs, {}, {}) IN ~Replicates(d) /\ d.del = "none"
-NoTasks(hs) == \A n \in hs : ~Replicates(Decide27(n, hs, {}, {}))
- \* a check "replicates" when it hands the replicator a task with at least one candidate node. (With overlapping
-\* rules the code as found keeps calling the replicator with an EMPTY candidate list: a holder remembered from
-\* an earlier rule does not lower the shortage of a later rule - a phantom shortage that copies nothing.)
-Replicates(d) == \E k \in 1..Len(d.tasks) : Len(d.tasks[k].nodes) > 0
-Quiet(hs) == \A n \in hs : LET d == Decide27(n, hs, {}, {}) IN ~Replicates(d) /\ d.del = "none"
-NoTasks(hs) == \A n \in hs : ~Replicates(Decide27(n, hs, {}, {}))
-|\* a check "replicates" when it hands the replicator a task with at least one candidate node. (With overlapping
-\* rules the code as found keeps calling the replicator with an EMPTY candidate list: a holder remembered from
-\* an earlier rule does not lower the shortage of a later rule - a phantom shortage that copies nothing.)
-Replicates(d) == \E k \in 1..Len(d.tasks) : Len(d.tasks[k].nodes) > 0
-Quiet(hs) == \A n \in hs : LET d == Decide27(n, hs, {}, {}) IN ~Replicates(d) /\ d.del = "none"
-NoTasks(hs) == \A n \in hs : ~Replicates(Decide27(n, hs, {}, {}))
--\* a check "replicates" when it hands the replicator a task with at least one candidate node. (With overlapping
-\* rules the code as found keeps calling the replicator with an EMPTY candidate list: a holder remembered from
-\* an earlier rule does not lower the shortage of a later rule - a phantom shortage that copies nothing.)
-Replicates(d) == \E k \in 1..Len(d.tasks) : Len(d.tasks[k].nodes) > 0
-Quiet(hs) == \A n \in hs : LET d == Decide27(n, hs, {}, {}) IN ~Replicates(d) /\ d.del = "none"
-NoTasks(hs) == \A n \in hs : ~Replicates(Decide27(n, hs, {}, {}))
->\* a check "replicates" when it hands the replicator a task with at least one candidate node. (With overlapping
-\* rules the code as found keeps calling the replicator with an EMPTY candidate list: a holder remembered from
-\* an earlier rule does not lower the shortage of a later rule - a phantom shortage that copies nothing.)
-Replicates(d) == \E k \in 1..Len(d.tasks) : Len(d.tasks[k].nodes) > 0
-Quiet(hs) == \A n \in hs : LET d == Decide27(n, hs, {}, {}) IN ~Replicates(d) /\ d.del = "none"
-NoTasks(hs) == \A n \in hs : ~Replicates(Decide27(n, hs, {}, {}))
- \* a check "replicates" when it hands the replicator a task with at least one candidate node. (With overlapping
-\* rules the code as found keeps calling the replicator with an EMPTY candidate list: a holder remembered from
-\* an earlier rule does not lower the shortage of a later rule - a phantom shortage that copies nothing.)
-Replicates(d) == \E k \in 1..Len(d.tasks) : Len(d.tasks[k].nodes) > 0
-Quiet(hs) == \A n \in hs : LET d == Decide27(n, hs, {}, {}) IN ~Replicates(d) /\ d.del = "none"
-NoTasks(hs) == \A n \in hs : ~Replicates(Decide27(n, hs, {}, {}))
-S\* a check "replicates" when it hands the replicator a task with at least one candidate node. (With overlapping
-\* rules the code as found keeps calling the replicator with an EMPTY candidate list: a holder remembered from
-\* an earlier rule does not lower the shortage of a later rule - a phantom shortage that copies nothing.)
-Replicates(d) == \E k \in 1..Len(d.tasks) : Len(d.tasks[k].nodes) > 0
-Quiet(hs) == \A n \in hs : LET d == Decide27(n, hs, {}, {}) IN ~Replicates(d) /\ d.del = "none"
-NoTasks(hs) == \A n \in hs : ~Replicates(Decide27(n, hs, {}, {}))
-w\* a check "replicates" when it hands the replicator a task with at least one candidate node. (With overlapping
-\* rules the code as found keeps calling the replicator with an EMPTY candidate list: a holder remembered from
-\* an earlier rule does not lower the shortage of a later rule - a phantom shortage that copies nothing.)
-Replicates(d) == \E k \in 1..Len(d.tasks) : Len(d.tasks[k].nodes) > 0
-Quiet(hs) == \A n \in hs : LET d == Decide27(n, hs, {}, {}) IN ~Replicates(d) /\ d.del = "none"
-NoTasks(hs) == \A n \in hs : ~Replicates(Decide27(n, hs, {}, {}))
-a\* a check "replicates" when it hands the replicator a task with at least one candidate node. (With overlapping
-\* rules the code as found keeps calling the replicator with an EMPTY candidate list: a holder remembered from
-\* an earlier rule does not lower the shortage of a later rule - a phantom shortage that copies nothing.)
-Replicates(d) == \E k \in 1..Len(d.tasks) : Len(d.tasks[k].nodes) > 0
-Quiet(hs) == \A n \in hs : LET d == Decide27(n, hs, {}, {}) IN ~Replicates(d) /\ d.del = "none"
-NoTasks(hs) == \A n \in hs : ~Replicates(Decide27(n, hs, {}, {}))
-p\* a check "replicates" when it hands the replicator a task with at least one candidate node. (With overlapping
-\* rules the code as found keeps calling the replicator with an EMPTY candidate list: a holder remembered from
-\* an earlier rule does not lower the shortage of a later rule - a phantom shortage that copies nothing.)
-Replicates(d) == \E k \in 1..Len(d.tasks) : Len(d.tasks[k].nodes) > 0
-Quiet(hs) == \A n \in hs : LET d == Decide27(n, hs, {}, {}) IN ~Replicates(d) /\ d.del = "none"
-NoTasks(hs) == \A n \in hs : ~Replicates(Decide27(n, hs, {}, {}))
-(\* a check "replicates" when it hands the replicator a task with at least one candidate node. (With overlapping
-\* rules the code as found keeps calling the replicator with an EMPTY candidate list: a holder remembered from
-\* an earlier rule does not lower the shortage of a later rule - a phantom shortage that copies nothing.)
-Replicates(d) == \E k \in 1..Len(d.tasks) : Len(d.tasks[k].nodes) > 0
-Quiet(hs) == \A n \in hs : LET d == Decide27(n, hs, {}, {}) IN ~Replicates(d) /\ d.del = "none"
-NoTasks(hs) == \A n \in hs : ~Replicates(Decide27(n, hs, {}, {}))
-n\* a check "replicates" when it hands the replicator a task with at least one candidate node. (With overlapping
-\* rules the code as found keeps calling the replicator with an EMPTY candidate list: a holder remembered from
-\* an earlier rule does not lower the shortage of a later rule - a phantom shortage that copies nothing.)
-Replicates(d) == \E k \in 1..Len(d.tasks) : Len(d.tasks[k].nodes) > 0
-Quiet(hs) == \A n \in hs : LET d == Decide27(n, hs, {}, {}) IN ~Replicates(d) /\ d.del = "none"
-NoTasks(hs) == \A n \in hs : ~Replicates(Decide27(n, hs, {}, {}))
-,\* a check "replicates" when it hands the replicator a task with at least one candidate node. (With overlapping
-\* rules the code as found keeps calling the replicator with an EMPTY candidate list: a holder remembered from
-\* an earlier rule does not lower the shortage of a later rule - a phantom shortage that copies nothing.)
-Replicates(d) == \E k \in 1..Len(d.tasks) : Len(d.tasks[k].nodes) > 0
-Quiet(hs) == \A n \in hs : LET d == Decide27(n, hs, {}, {}) IN ~Replicates(d) /\ d.del = "none"
-NoTasks(hs) == \A n \in hs : ~Replicates(Decide27(n, hs, {}, {}))
- \* a check "replicates" when it hands the replicator a task with at least one candidate node. (With overlapping
-\* rules the code as found keeps calling the replicator with an EMPTY candidate list: a holder remembered from
-\* an earlier rule does not lower the shortage of a later rule - a phantom shortage that copies nothing.)
-Replicates(d) == \E k \in 1..Len(d.tasks) : Len(d.tasks[k].nodes) > 0
-Quiet(hs) == \A n \in hs : LET d == Decide27(n, hs, {}, {}) IN ~Replicates(d) /\ d.del = "none"
-NoTasks(hs) == \A n \in hs : ~Replicates(Decide27(n, hs, {}, {}))
-r\* a check "replicates" when it hands the replicator a task with at least one candidate node. (With overlapping
-\* rules the code as found keeps calling the replicator with an EMPTY candidate list: a holder remembered from
-\* an earlier rule does not lower the shortage of a later rule - a phantom shortage that copies nothing.)
-Replicates(d) == \E k \in 1..Len(d.tasks) : Len(d.tasks[k].nodes) > 0
-Quiet(hs) == \A n \in hs : LET d == Decide27(n, hs, {}, {}) IN ~Replicates(d) /\ d.del = "none"
-NoTasks(hs) == \A n \in hs : ~Replicates(Decide27(n, hs, {}, {}))
-u\* a check "replicates" when it hands the replicator a task with at least one candidate node. (With overlapping
-\* rules the code as found keeps calling the replicator with an EMPTY candidate list: a holder remembered from
-\* an earlier rule does not lower the shortage of a later rule - a phantom shortage that copies nothing.)
-Replicates(d) == \E k \in 1..Len(d.tasks) : Len(d.tasks[k].nodes) > 0
-Quiet(hs) == \A n \in hs : LET d == Decide27(n, hs, {}, {}) IN ~Replicates(d) /\ d.del = "none"
-NoTasks(hs) == \A n \in hs : ~Replicates(Decide27(n, hs, {}, {}))
-l\* a check "replicates" when it hands the replicator a task with at least one candidate node. (With overlapping
-\* rules the code as found keeps calling the replicator with an EMPTY candidate list: a holder remembered from
-\* an earlier rule does not lower the shortage of a later rule - a phantom shortage that copies nothing.)
-Replicates(d) == \E k \in 1..Len(d.tasks) : Len(d.tasks[k].nodes) > 0
-Quiet(hs) == \A n \in hs : LET d == Decide27(n, hs, {}, {}) IN ~Replicates(d) /\ d.del = "none"
-NoTasks(hs) == \A n \in hs : ~Replicates(Decide27(n, hs, {}, {}))
-e\* a check "replicates" when it hands the replicator a task with at least one candidate node. (With overlapping
-\* rules the code as found keeps calling the replicator with an EMPTY candidate list: a holder remembered from
-\* an earlier rule does not lower the shortage of a later rule - a phantom shortage that copies nothing.)
-Replicates(d) == \E k \in 1..Len(d.tasks) : Len(d.tasks[k].nodes) > 0
-Quiet(hs) == \A n \in hs : LET d == Decide27(n, hs, {}, {}) IN ~Replicates(d) /\ d.del = "none"
-NoTasks(hs) == \A n \in hs : ~Replicates(Decide27(n, hs, {}, {}))
-s\* a check "replicates" when it hands the replicator a task with at least one candidate node. (With overlapping
-\* rules the code as found keeps calling the replicator with an EMPTY candidate list: a holder remembered from
-\* an earlier rule does not lower the shortage of a later rule - a phantom shortage that copies nothing.)
-Replicates(d) == \E k \in 1..Len(d.tasks) : Len(d.tasks[k].nodes) > 0
-Quiet(hs) == \A n \in hs : LET d == Decide27(n, hs, {}, {}) IN ~Replicates(d) /\ d.del = "none"
-NoTasks(hs) == \A n \in hs : ~Replicates(Decide27(n, hs, {}, {}))
-[\* a check "replicates" when it hands the replicator a task with at least one candidate node. (With overlapping
-\* rules the code as found keeps calling the replicator with an EMPTY candidate list: a holder remembered from
-\* an earlier rule does not lower the shortage of a later rule - a phantom shortage that copies nothing.)
-Replicates(d) == \E k \in 1..Len(d.tasks) : Len(d.tasks[k].nodes) > 0
-Quiet(hs) == \A n \in hs : LET d == Decide27(n, hs, {}, {}) IN ~Replicates(d) /\ d.del = "none"
-NoTasks(hs) == \A n \in hs : ~Replicates(Decide27(n, hs, {}, {}))
-k\* a check "replicates" when it hands the replicator a task with at least one candidate node. (With overlapping
-\* rules the code as found keeps calling the replicator with an EMPTY candidate list: a holder remembered from
-\* an earlier rule does not lower the shortage of a later rule - a phantom shortage that copies nothing.)
-Replicates(d) == \E k \in 1..Len(d.tasks) : Len(d.tasks[k].nodes) > 0
-Quiet(hs) == \A n \in hs : LET d == Decide27(n, hs, {}, {}) IN ~Replicates(d) /\ d.del = "none"
-NoTasks(hs) == \A n \in hs : ~Replicates(Decide27(n, hs, {}, {}))
-x\* a check "replicates" when it hands the replicator a task with at least one candidate node. (With overlapping
-\* rules the code as found keeps calling the replicator with an EMPTY candidate list: a holder remembered from
-\* an earlier rule does not lower the shortage of a later rule - a phantom shortage that copies nothing.)
-Replicates(d) == \E k \in 1..Len(d.tasks) : Len(d.tasks[k].nodes) > 0
-Quiet(hs) == \A n \in hs : LET d == Decide27(n, hs, {}, {}) IN ~Replicates(d) /\ d.del = "none"
-NoTasks(hs) == \A n \in hs : ~Replicates(Decide27(n, hs, {}, {}))
-]\* a check "replicates" when it hands the replicator a task with at least one candidate node. (With overlapping
-\* rules the code as found keeps calling the replicator with an EMPTY candidate list: a holder remembered from
-\* an earlier rule does not lower the shortage of a later rule - a phantom shortage that copies nothing.)
-Replicates(d) == \E k \in 1..Len(d.tasks) : Len(d.tasks[k].nodes) > 0
-Quiet(hs) == \A n \in hs : LET d == Decide27(n, hs, {}, {}) IN ~Replicates(d) /\ d.del = "none"
-NoTasks(hs) == \A n \in hs : ~Replicates(Decide27(n, hs, {}, {}))
-.\* a check "replicates" when it hands the replicator a task with at least one candidate node. (With overlapping
-\* rules the code as found keeps calling the replicator with an EMPTY candidate list: a holder remembered from
-\* an earlier rule does not lower the shortage of a later rule - a phantom shortage that copies nothing.)
-Replicates(d) == \E k \in 1..Len(d.tasks) : Len(d.tasks[k].nodes) > 0
-Quiet(hs) == \A n \in hs : LET d == Decide27(n, hs, {}, {}) IN ~Replicates(d) /\ d.del = "none"
-NoTasks(hs) == \A n \in hs : ~Replicates(Decide27(n, hs, {}, {}))
-n\* a check "replicates" when it hands the replicator a task with at least one candidate node. (With overlapping
-\* rules the code as found keeps calling the replicator with an EMPTY candidate list: a holder remembered from
-\* an earlier rule does not lower the shortage of a later rule - a phantom shortage that copies nothing.)
-Replicates(d) == \E k \in 1..Len(d.tasks) : Len(d.tasks[k].nodes) > 0
-Quiet(hs) == \A n \in hs : LET d == Decide27(n, hs, {}, {}) IN ~Replicates(d) /\ d.del = "none"
-NoTasks(hs) == \A n \in hs : ~Replicates(Decide27(n, hs, {}, {}))
-o\* a check "replicates" when it hands the replicator a task with at least one candidate node. (With overlapping
-\* rules the code as found keeps calling the replicator with an EMPTY candidate list: a holder remembered from
-\* an earlier rule does not lower the shortage of a later rule - a phantom shortage that copies nothing.)
-Replicates(d) == \E k \in 1..Len(d.tasks) : Len(d.tasks[k].nodes) > 0
-Quiet(hs) == \A n \in hs : LET d == Decide27(n, hs, {}, {}) IN ~Replicates(d) /\ d.del = "none"
-NoTasks(hs) == \A n \in hs : ~Replicates(Decide27(n, hs, {}, {}))
-d\* a check "replicates" when it hands the replicator a task with at least one candidate node. (With overlapping
-\* rules the code as found keeps calling the replicator with an EMPTY candidate list: a holder remembered from
-\* an earlier rule does not lower the shortage of a later rule - a phantom shortage that copies nothing.)
-Replicates(d) == \E k \in 1..Len(d.tasks) : Len(d.tasks[k].nodes) > 0
-Quiet(hs) == \A n \in hs : LET d == Decide27(n, hs, {}, {}) IN ~Replicates(d) /\ d.del = "none"
-NoTasks(hs) == \A n \in hs : ~Replicates(Decide27(n, hs, {}, {}))
-e\* a check "replicates" when it hands the replicator a task with at least one candidate node. (With overlapping
-\* rules the code as found keeps calling the replicator with an EMPTY candidate list: a holder remembered from
-\* an earlier rule does not lower the shortage of a later rule - a phantom shortage that copies nothing.)
-Replicates(d) == \E k \in 1..Len(d.tasks) : Len(d.tasks[k].nodes) > 0
-Quiet(hs) == \A n \in hs : LET d == Decide27(n, hs, {}, {}) IN ~Replicates(d) /\ d.del = "none"
-NoTasks(hs) == \A n \in hs : ~Replicates(Decide27(n, hs, {}, {}))
-s\* a check "replicates" when it hands the replicator a task with at least one candidate node. (With overlapping
-\* rules the code as found keeps calling the replicator with an EMPTY candidate list: a holder remembered from
-\* an earlier rule does not lower the shortage of a later rule - a phantom shortage that copies nothing.)
-Replicates(d) == \E k \in 1..Len(d.tasks) : Len(d.tasks[k].nodes) > 0
-Quiet(hs) == \A n \in hs : LET d == Decide27(n, hs, {}, {}) IN ~Replicates(d) /\ d.del = "none"
-NoTasks(hs) == \A n \in hs : ~Replicates(Decide27(n, hs, {}, {}))
-[\* a check "replicates" when it hands the replicator a task with at least one candidate node. (With overlapping
-\* rules the code as found keeps calling the replicator with an EMPTY candidate list: a holder remembered from
-\* an earlier rule does not lower the shortage of a later rule - a phantom shortage that copies nothing.)
-Replicates(d) == \E k \in 1..Len(d.tasks) : Len(d.tasks[k].nodes) > 0
-Quiet(hs) == \A n \in hs : LET d == Decide27(n, hs, {}, {}) IN ~Replicates(d) /\ d.del = "none"
-NoTasks(hs) == \A n \in hs : ~Replicates(Decide27(n, hs, {}, {}))
-i\* a check "replicates" when it hands the replicator a task with at least one candidate node. (With overlapping
-\* rules the code as found keeps calling the replicator with an EMPTY candidate list: a holder remembered from
-\* an earlier rule does not lower the shortage of a later rule - a phantom shortage that copies nothing.)
-Replicates(d) == \E k \in 1..Len(d.tasks) : Len(d.tasks[k].nodes) > 0
-Quiet(hs) == \A n \in hs : LET d == Decide27(n, hs, {}, {}) IN ~Replicates(d) /\ d.del = "none"
-NoTasks(hs) == \A n \in hs : ~Replicates(Decide27(n, hs, {}, {}))
-x\* a check "replicates" when it hands the replicator a task with at least one candidate node. (With overlapping
-\* rules the code as found keeps calling the replicator with an EMPTY candidate list: a holder remembered from
-\* an earlier rule does not lower the shortage of a later rule - a phantom shortage that copies nothing.)
-Replicates(d) == \E k \in 1..Len(d.tasks) : Len(d.tasks[k].nodes) > 0
-Quiet(hs) == \A n \in hs : LET d == Decide27(n, hs, {}, {}) IN ~Replicates(d) /\ d.del = "none"
-NoTasks(hs) == \A n \in hs : ~Replicates(Decide27(n, hs, {}, {}))
-]\* a check "replicates" when it hands the replicator a task with at least one candidate node. (With overlapping
-\* rules the code as found keeps calling the replicator with an EMPTY candidate list: a holder remembered from
-\* an earlier rule does not lower the shortage of a later rule - a phantom shortage that copies nothing.)
-Replicates(d) == \E k \in 1..Len(d.tasks) : Len(d.tasks[k].nodes) > 0
-Quiet(hs) == \A n \in hs : LET d == Decide27(n, hs, {}, {}) IN ~Replicates(d) /\ d.del = "none"
-NoTasks(hs) == \A n \in hs : ~Replicates(Decide27(n, hs, {}, {}))
-)\* a check "replicates" when it hands the replicator a task with at least one candidate node. (With overlapping
-\* rules the code as found keeps calling the replicator with an EMPTY candidate list: a holder remembered from
-\* an earlier rule does not lower the shortage of a later rule - a phantom shortage that copies nothing.)
-Replicates(d) == \E k \in 1..Len(d.tasks) : Len(d.tasks[k].nodes) > 0
-Quiet(hs) == \A n \in hs : LET d == Decide27(n, hs, {}, {}) IN ~Replicates(d) /\ d.del = "none"
-NoTasks(hs) == \A n \in hs : ~Replicates(Decide27(n, hs, {}, {}))
-]\* a check "replicates" when it hands the replicator a task with at least one candidate node. (With overlapping
-\* rules the code as found keeps calling the replicator with an EMPTY candidate list: a holder remembered from
-\* an earlier rule does not lower the shortage of a later rule - a phantom shortage that copies nothing.)
-Replicates(d) == \E k \in 1..Len(d.tasks) : Len(d.tasks[k].nodes) > 0
-Quiet(hs) == \A n \in hs : LET d == Decide27(n, hs, {}, {}) IN ~Replicates(d) /\ d.del = "none"
-NoTasks(hs) == \A n \in hs : ~Replicates(Decide27(n, hs, {}, {}))
-,\* a check "replicates" when it hands the replicator a task with at least one candidate node. (With overlapping
-\* rules the code as found keeps calling the replicator with an EMPTY candidate list: a holder remembered from
-\* an earlier rule does not lower the shortage of a later rule - a phantom shortage that copies nothing.)
-Replicates(d) == \E k \in 1..Len(d.tasks) : Len(d.tasks[k].nodes) > 0
-Quiet(hs) == \A n \in hs : LET d == Decide27(n, hs, {}, {}) IN ~Replicates(d) /\ d.del = "none"
-NoTasks(hs) == \A n \in hs : ~Replicates(Decide27(n, hs, {}, {}))
-
-\* a check "replicates" when it hands the replicator a task with at least one candidate node. (With overlapping
-\* rules the code as found keeps calling the replicator with an EMPTY candidate list: a holder remembered from
-\* an earlier rule does not lower the shortage of a later rule - a phantom shortage that copies nothing.)
-Replicates(d) == \E k \in 1..Len(d.tasks) : Len(d.tasks[k].nodes) > 0
-Quiet(hs) == \A n \in hs : LET d == Decide27(n, hs, {}, {}) IN ~Replicates(d) /\ d.del = "none"
-NoTasks(hs) == \A n \in hs : ~Replicates(Decide27(n, hs, {}, {}))
- \* a check "replicates" when it hands the replicator a task with at least one candidate node. (With overlapping
-\* rules the code as found keeps calling the replicator with an EMPTY candidate list: a holder remembered from
-\* an earlier rule does not lower the shortage of a later rule - a phantom shortage that copies nothing.)
-Replicates(d) == \E k \in 1..Len(d.tasks) : Len(d.tasks[k].nodes) > 0
-Quiet(hs) == \A n \in hs : LET d == Decide27(n, hs, {}, {}) IN ~Replicates(d) /\ d.del = "none"
-NoTasks(hs) == \A n \in hs : ~Replicates(Decide27(n, hs, {}, {}))
- \* a check "replicates" when it hands the replicator a task with at least one candidate node. (With overlapping
-\* rules the code as found keeps calling the replicator with an EMPTY candidate list: a holder remembered from
-\* an earlier rule does not lower the shortage of a later rule - a phantom shortage that copies nothing.)
-Replicates(d) == \E k \in 1..Len(d.tasks) : Len(d.tasks[k].nodes) > 0
-Quiet(hs) == \A n \in hs : LET d == Decide27(n, hs, {}, {}) IN ~Replicates(d) /\ d.del = "none"
-NoTasks(hs) == \A n \in hs : ~Replicates(Decide27(n, hs, {}, {}))
- \* a check "replicates" when it hands the replicator a task with at least one candidate node. (With overlapping
-\* rules the code as found keeps calling the replicator with an EMPTY candidate list: a holder remembered from
-\* an earlier rule does not lower the shortage of a later rule - a phantom shortage that copies nothing.)
-Replicates(d) == \E k \in 1..Len(d.tasks) : Len(d.tasks[k].nodes) > 0
-Quiet(hs) == \A n \in hs : LET d == Decide27(n, hs, {}, {}) IN ~Replicates(d) /\ d.del = "none"
-NoTasks(hs) == \A n \in hs : ~Replicates(Decide27(n, hs, {}, {}))
- \* a check "replicates" when it hands the replicator a task with at least one candidate node. (With overlapping
-\* rules the code as found keeps calling the replicator with an EMPTY candidate list: a holder remembered from
-\* an earlier rule does not lower the shortage of a later rule - a phantom shortage that copies nothing.)
-Replicates(d) == \E k \in 1..Len(d.tasks) : Len(d.tasks[k].nodes) > 0
-Quiet(hs) == \A n \in hs : LET d == Decide27(n, hs, {}, {}) IN ~Replicates(d) /\ d.del = "none"
-NoTasks(hs) == \A n \in hs : ~Replicates(Decide27(n, hs, {}, {}))
- \* a check "replicates" when it hands the replicator a task with at least one candidate node. (With overlapping
-\* rules the code as found keeps calling the replicator with an EMPTY candidate list: a holder remembered from
-\* an earlier rule does not lower the shortage of a later rule - a phantom shortage that copies nothing.)
-Replicates(d) == \E k \in 1..Len(d.tasks) : Len(d.tasks[k].nodes) > 0
-Quiet(hs) == \A n \in hs : LET d == Decide27(n, hs, {}, {}) IN ~Replicates(d) /\ d.del = "none"
-NoTasks(hs) == \A n \in hs : ~Replicates(Decide27(n, hs, {}, {}))
- \* a check "replicates" when it hands the replicator a task with at least one candidate node. (With overlapping
-\* rules the code as found keeps calling the replicator with an EMPTY candidate list: a holder remembered from
-\* an earlier rule does not lower the shortage of a later rule - a phantom shortage that copies nothing.)
-Replicates(d) == \E k \in 1..Len(d.tasks) : Len(d.tasks[k].nodes) > 0
-Quiet(hs) == \A n \in hs : LET d == Decide27(n, hs, {}, {}) IN ~Replicates(d) /\ d.del = "none"
-NoTasks(hs) == \A n \in hs : ~Replicates(Decide27(n, hs, {}, {}))
- \* a check "replicates" when it hands the replicator a task with at least one candidate node. (With overlapping
-\* rules the code as found keeps calling the replicator with an EMPTY candidate list: a holder remembered from
-\* an earlier rule does not lower the shortage of a later rule - a phantom shortage that copies nothing.)
-Replicates(d) == \E k \in 1..Len(d.tasks) : Len(d.tasks[k].nodes) > 0
-Quiet(hs) == \A n \in hs : LET d == Decide27(n, hs, {}, {}) IN ~Replicates(d) /\ d.del = "none"
-NoTasks(hs) == \A n \in hs : ~Replicates(Decide27(n, hs, {}, {}))
- \* a check "replicates" when it hands the replicator a task with at least one candidate node. (With overlapping
-\* rules the code as found keeps calling the replicator with an EMPTY candidate list: a holder remembered from
-\* an earlier rule does not lower the shortage of a later rule - a phantom shortage that copies nothing.)
-Replicates(d) == \E k \in 1..Len(d.tasks) : Len(d.tasks[k].nodes) > 0
-Quiet(hs) == \A n \in hs : LET d == Decide27(n, hs, {}, {}) IN ~Replicates(d) /\ d.del = "none"
-NoTasks(hs) == \A n \in hs : ~Replicates(Decide27(n, hs, {}, {}))
- \* a check "replicates" when it hands the replicator a task with at least one candidate node. (With overlapping
-\* rules the code as found keeps calling the replicator with an EMPTY candidate list: a holder remembered from
-\* an earlier rule does not lower the shortage of a later rule - a phantom shortage that copies nothing.)
-Replicates(d) == \E k \in 1..Len(d.tasks) : Len(d.tasks[k].nodes) > 0
-Quiet(hs) == \A n \in hs : LET d == Decide27(n, hs, {}, {}) IN ~Replicates(d) /\ d.del = "none"
-NoTasks(hs) == \A n \in hs : ~Replicates(Decide27(n, hs, {}, {}))
- \* a check "replicates" when it hands the replicator a task with at least one candidate node. (With overlapping
-\* rules the code as found keeps calling the replicator with an EMPTY candidate list: a holder remembered from
-\* an earlier rule does not lower the shortage of a later rule - a phantom shortage that copies nothing.)
-Replicates(d) == \E k \in 1..Len(d.tasks) : Len(d.tasks[k].nodes) > 0
-Quiet(hs) == \A n \in hs : LET d == Decide27(n, hs, {}, {}) IN ~Replicates(d) /\ d.del = "none"
-NoTasks(hs) == \A n \in hs : ~Replicates(Decide27(n, hs, {}, {}))
- \* a check "replicates" when it hands the replicator a task with at least one candidate node. (With overlapping
-\* rules the code as found keeps calling the replicator with an EMPTY candidate list: a holder remembered from
-\* an earlier rule does not lower the shortage of a later rule - a phantom shortage that copies nothing.)
-Replicates(d) == \E k \in 1..Len(d.tasks) : Len(d.tasks[k].nodes) > 0
-Quiet(hs) == \A n \in hs : LET d == Decide27(n, hs, {}, {}) IN ~Replicates(d) /\ d.del = "none"
-NoTasks(hs) == \A n \in hs : ~Replicates(Decide27(n, hs, {}, {}))
- \* a check "replicates" when it hands the replicator a task with at least one candidate node. (With overlapping
-\* rules the code as found keeps calling the replicator with an EMPTY candidate list: a holder remembered from
-\* an earlier rule does not lower the shortage of a later rule - a phantom shortage that copies nothing.)
-Replicates(d) == \E k \in 1..Len(d.tasks) : Len(d.tasks[k].nodes) > 0
-Quiet(hs) == \A n \in hs : LET d == Decide27(n, hs, {}, {}) IN ~Replicates(d) /\ d.del = "none"
-NoTasks(hs) == \A n \in hs : ~Replicates(Decide27(n, hs, {}, {}))
- \* a check "replicates" when it hands the replicator a task with at least one candidate node. (With overlapping
-\* rules the code as found keeps calling the replicator with an EMPTY candidate list: a holder remembered from
-\* an earlier rule does not lower the shortage of a later rule - a phantom shortage that copies nothing.)
-Replicates(d) == \E k \in 1..Len(d.tasks) : Len(d.tasks[k].nodes) > 0
-Quiet(hs) == \A n \in hs : LET d == Decide27(n, hs, {}, {}) IN ~Replicates(d) /\ d.del = "none"
-NoTasks(hs) == \A n \in hs : ~Replicates(Decide27(n, hs, {}, {}))
- \* a check "replicates" when it hands the replicator a task with at least one candidate node. (With overlapping
-\* rules the code as found keeps calling the replicator with an EMPTY candidate list: a holder remembered from
-\* an earlier rule does not lower the shortage of a later rule - a phantom shortage that copies nothing.)
-Replicates(d) == \E k \in 1..Len(d.tasks) : Len(d.tasks[k].nodes) > 0
-Quiet(hs) == \A n \in hs : LET d == Decide27(n, hs, {}, {}) IN ~Replicates(d) /\ d.del = "none"
-NoTasks(hs) == \A n \in hs : ~Replicates(Decide27(n, hs, {}, {}))
- \* a check "replicates" when it hands the replicator a task with at least one candidate node. (With overlapping
-\* rules the code as found keeps calling the replicator with an EMPTY candidate list: a holder remembered from
-\* an earlier rule does not lower the shortage of a later rule - a phantom shortage that copies nothing.)
-Replicates(d) == \E k \in 1..Len(d.tasks) : Len(d.tasks[k].nodes) > 0
-Quiet(hs) == \A n \in hs : LET d == Decide27(n, hs, {}, {}) IN ~Replicates(d) /\ d.del = "none"
-NoTasks(hs) == \A n \in hs : ~Replicates(Decide27(n, hs, {}, {}))
- \* a check "replicates" when it hands the replicator a task with at least one candidate node. (With overlapping
-\* rules the code as found keeps calling the replicator with an EMPTY candidate list: a holder remembered from
-\* an earlier rule does not lower the shortage of a later rule - a phantom shortage that copies nothing.)
-Replicates(d) == \E k \in 1..Len(d.tasks) : Len(d.tasks[k].nodes) > 0
-Quiet(hs) == \A n \in hs : LET d == Decide27(n, hs, {}, {}) IN ~Replicates(d) /\ d.del = "none"
-NoTasks(hs) == \A n \in hs : ~Replicates(Decide27(n, hs, {}, {}))
- \* a check "replicates" when it hands the replicator a task with at least one candidate node. (With overlapping
-\* rules the code as found keeps calling the replicator with an EMPTY candidate list: a holder remembered from
-\* an earlier rule does not lower the shortage of a later rule - a phantom shortage that copies nothing.)
-Replicates(d) == \E k \in 1..Len(d.tasks) : Len(d.tasks[k].nodes) > 0
-Quiet(hs) == \A n \in hs : LET d == Decide27(n, hs, {}, {}) IN ~Replicates(d) /\ d.del = "none"
-NoTasks(hs) == \A n \in hs : ~Replicates(Decide27(n, hs, {}, {}))
- \* a check "replicates" when it hands the replicator a task with at least one candidate node. (With overlapping
-\* rules the code as found keeps calling the replicator with an EMPTY candidate list: a holder remembered from
-\* an earlier rule does not lower the shortage of a later rule - a phantom shortage that copies nothing.)
-Replicates(d) == \E k \in 1..Len(d.tasks) : Len(d.tasks[k].nodes) > 0
-Quiet(hs) == \A n \in hs : LET d == Decide27(n, hs, {}, {}) IN ~Replicates(d) /\ d.del = "none"
-NoTasks(hs) == \A n \in hs : ~Replicates(Decide27(n, hs, {}, {}))
- \* a check "replicates" when it hands the replicator a task with at least one candidate node. (With overlapping
-\* rules the code as found keeps calling the replicator with an EMPTY candidate list: a holder remembered from
-\* an earlier rule does not lower the shortage of a later rule - a phantom shortage that copies nothing.)
-Replicates(d) == \E k \in 1..Len(d.tasks) : Len(d.tasks[k].nodes) > 0
-Quiet(hs) == \A n \in hs : LET d == Decide27(n, hs, {}, {}) IN ~Replicates(d) /\ d.del = "none"
-NoTasks(hs) == \A n \in hs : ~Replicates(Decide27(n, hs, {}, {}))
- \* a check "replicates" when it hands the replicator a task with at least one candidate node. (With overlapping
-\* rules the code as found keeps calling the replicator with an EMPTY candidate list: a holder remembered from
-\* an earlier rule does not lower the shortage of a later rule - a phantom shortage that copies nothing.)
-Replicates(d) == \E k \in 1..Len(d.tasks) : Len(d.tasks[k].nodes) > 0
-Quiet(hs) == \A n \in hs : LET d == Decide27(n, hs, {}, {}) IN ~Replicates(d) /\ d.del = "none"
-NoTasks(hs) == \A n \in hs : ~Replicates(Decide27(n, hs, {}, {}))
- \* a check "replicates" when it hands the replicator a task with at least one candidate node. (With overlapping
-\* rules the code as found keeps calling the replicator with an EMPTY candidate list: a holder remembered from
-\* an earlier rule does not lower the shortage of a later rule - a phantom shortage that copies nothing.)
-Replicates(d) == \E k \in 1..Len(d.tasks) : Len(d.tasks[k].nodes) > 0
-Quiet(hs) == \A n \in hs : LET d == Decide27(n, hs, {}, {}) IN ~Replicates(d) /\ d.del = "none"
-NoTasks(hs) == \A n \in hs : ~Replicates(Decide27(n, hs, {}, {}))
- \* a check "replicates" when it hands the replicator a task with at least one candidate node. (With overlapping
-\* rules the code as found keeps calling the replicator with an EMPTY candidate list: a holder remembered from
-\* an earlier rule does not lower the shortage of a later rule - a phantom shortage that copies nothing.)
-Replicates(d) == \E k \in 1..Len(d.tasks) : Len(d.tasks[k].nodes) > 0
-Quiet(hs) == \A n \in hs : LET d == Decide27(n, hs, {}, {}) IN ~Replicates(d) /\ d.del = "none"
-NoTasks(hs) == \A n \in hs : ~Replicates(Decide27(n, hs, {}, {}))
- \* a check "replicates" when it hands the replicator a task with at least one candidate node. (With overlapping
-\* rules the code as found keeps calling the replicator with an EMPTY candidate list: a holder remembered from
-\* an earlier rule does not lower the shortage of a later rule - a phantom shortage that copies nothing.)
-Replicates(d) == \E k \in 1..Len(d.tasks) : Len(d.tasks[k].nodes) > 0
-Quiet(hs) == \A n \in hs : LET d == Decide27(n, hs, {}, {}) IN ~Replicates(d) /\ d.del = "none"
-NoTasks(hs) == \A n \in hs : ~Replicates(Decide27(n, hs, {}, {}))
- \* a check "replicates" when it hands the replicator a task with at least one candidate node. (With overlapping
-\* rules the code as found keeps calling the replicator with an EMPTY candidate list: a holder remembered from
-\* an earlier rule does not lower the shortage of a later rule - a phantom shortage that copies nothing.)
-Replicates(d) == \E k \in 1..Len(d.tasks) : Len(d.tasks[k].nodes) > 0
-Quiet(hs) == \A n \in hs : LET d == Decide27(n, hs, {}, {}) IN ~Replicates(d) /\ d.del = "none"
-NoTasks(hs) == \A n \in hs : ~Replicates(Decide27(n, hs, {}, {}))
- \* a check "replicates" when it hands the replicator a task with at least one candidate node. (With overlapping
-\* rules the code as found keeps calling the replicator with an EMPTY candidate list: a holder remembered from
-\* an earlier rule does not lower the shortage of a later rule - a phantom shortage that copies nothing.)
-Replicates(d) == \E k \in 1..Len(d.tasks) : Len(d.tasks[k].nodes) > 0
-Quiet(hs) == \A n \in hs : LET d == Decide27(n, hs, {}, {}) IN ~Replicates(d) /\ d.del = "none"
-NoTasks(hs) == \A n \in hs : ~Replicates(Decide27(n, hs, {}, {}))
- \* a check "replicates" when it hands the replicator a task with at least one candidate node. (With overlapping
-\* rules the code as found keeps calling the replicator with an EMPTY candidate list: a holder remembered from
-\* an earlier rule does not lower the shortage of a later rule - a phantom shortage that copies nothing.)
-Replicates(d) == \E k \in 1..Len(d.tasks) : Len(d.tasks[k].nodes) > 0
-Quiet(hs) == \A n \in hs : LET d == Decide27(n, hs, {}, {}) IN ~Replicates(d) /\ d.del = "none"
-NoTasks(hs) == \A n \in hs : ~Replicates(Decide27(n, hs, {}, {}))
- \* a check "replicates" when it hands the replicator a task with at least one candidate node. (With overlapping
-\* rules the code as found keeps calling the replicator with an EMPTY candidate list: a holder remembered from
-\* an earlier rule does not lower the shortage of a later rule - a phantom shortage that copies nothing.)
-Replicates(d) == \E k \in 1..Len(d.tasks) : Len(d.tasks[k].nodes) > 0
-Quiet(hs) == \A n \in hs : LET d == Decide27(n, hs, {}, {}) IN ~Replicates(d) /\ d.del = "none"
-NoTasks(hs) == \A n \in hs : ~Replicates(Decide27(n, hs, {}, {}))
- \* a check "replicates" when it hands the replicator a task with at least one candidate node. (With overlapping
-\* rules the code as found keeps calling the replicator with an EMPTY candidate list: a holder remembered from
-\* an earlier rule does not lower the shortage of a later rule - a phantom shortage that copies nothing.)
-Replicates(d) == \E k \in 1..Len(d.tasks) : Len(d.tasks[k].nodes) > 0
-Quiet(hs) == \A n \in hs : LET d == Decide27(n, hs, {}, {}) IN ~Replicates(d) /\ d.del = "none"
-NoTasks(hs) == \A n \in hs : ~Replicates(Decide27(n, hs, {}, {}))
- \* a check "replicates" when it hands the replicator a task with at least one candidate node. (With overlapping
-\* rules the code as found keeps calling the replicator with an EMPTY candidate list: a holder remembered from
-\* an earlier rule does not lower the shortage of a later rule - a phantom shortage that copies nothing.)
-Replicates(d) == \E k \in 1..Len(d.tasks) : Len(d.tasks[k].nodes) > 0
-Quiet(hs) == \A n \in hs : LET d == Decide27(n, hs, {}, {}) IN ~Replicates(d) /\ d.del = "none"
-NoTasks(hs) == \A n \in hs : ~Replicates(Decide27(n, hs, {}, {}))
- \* a check "replicates" when it hands the replicator a task with at least one candidate node. (With overlapping
-\* rules the code as found keeps calling the replicator with an EMPTY candidate list: a holder remembered from
-\* an earlier rule does not lower the shortage of a later rule - a phantom shortage that copies nothing.)
-Replicates(d) == \E k \in 1..Len(d.tasks) : Len(d.tasks[k].nodes) > 0
-Quiet(hs) == \A n \in hs : LET d == Decide27(n, hs, {}, {}) IN ~Replicates(d) /\ d.del = "none"
-NoTasks(hs) == \A n \in hs : ~Replicates(Decide27(n, hs, {}, {}))
- \* a check "replicates" when it hands the replicator a task with at least one candidate node. (With overlapping
-\* rules the code as found keeps calling the replicator with an EMPTY candidate list: a holder remembered from
-\* an earlier rule does not lower the shortage of a later rule - a phantom shortage that copies nothing.)
-Replicates(d) == \E k \in 1..Len(d.tasks) : Len(d.tasks[k].nodes) > 0
-Quiet(hs) == \A n \in hs : LET d == Decide27(n, hs, {}, {}) IN ~Replicates(d) /\ d.del = "none"
-NoTasks(hs) == \A n \in hs : ~Replicates(Decide27(n, hs, {}, {}))
- \* a check "replicates" when it hands the replicator a task with at least one candidate node. (With overlapping
-\* rules the code as found keeps calling the replicator with an EMPTY candidate list: a holder remembered from
-\* an earlier rule does not lower the shortage of a later rule - a phantom shortage that copies nothing.)
-Replicates(d) == \E k \in 1..Len(d.tasks) : Len(d.tasks[k].nodes) > 0
-Quiet(hs) == \A n \in hs : LET d == Decide27(n, hs, {}, {}) IN ~Replicates(d) /\ d.del = "none"
-NoTasks(hs) == \A n \in hs : ~Replicates(Decide27(n, hs, {}, {}))
- \* a check "replicates" when it hands the replicator a task with at least one candidate node. (With overlapping
-\* rules the code as found keeps calling the replicator with an EMPTY candidate list: a holder remembered from
-\* an earlier rule does not lower the shortage of a later rule - a phantom shortage that copies nothing.)
-Replicates(d) == \E k \in 1..Len(d.tasks) : Len(d.tasks[k].nodes) > 0
-Quiet(hs) == \A n \in hs : LET d == Decide27(n, hs, {}, {}) IN ~Replicates(d) /\ d.del = "none"
-NoTasks(hs) == \A n \in hs : ~Replicates(Decide27(n, hs, {}, {}))
- \* a check "replicates" when it hands the replicator a task with at least one candidate node. (With overlapping
-\* rules the code as found keeps calling the replicator with an EMPTY candidate list: a holder remembered from
-\* an earlier rule does not lower the shortage of a later rule - a phantom shortage that copies nothing.)
-Replicates(d) == \E k \in 1..Len(d.tasks) : Len(d.tasks[k].nodes) > 0
-Quiet(hs) == \A n \in hs : LET d == Decide27(n, hs, {}, {}) IN ~Replicates(d) /\ d.del = "none"
-NoTasks(hs) == \A n \in hs : ~Replicates(Decide27(n, hs, {}, {}))
- \* a check "replicates" when it hands the replicator a task with at least one candidate node. (With overlapping
-\* rules the code as found keeps calling the replicator with an EMPTY candidate list: a holder remembered from
-\* an earlier rule does not lower the shortage of a later rule - a phantom shortage that copies nothing.)
-Replicates(d) == \E k \in 1..Len(d.tasks) : Len(d.tasks[k].nodes) > 0
-Quiet(hs) == \A n \in hs : LET d == Decide27(n, hs, {}, {}) IN ~Replicates(d) /\ d.del = "none"
-NoTasks(hs) == \A n \in hs : ~Replicates(Decide27(n, hs, {}, {}))
- \* a check "replicates" when it hands the replicator a task with at least one candidate node. (With overlapping
-\* rules the code as found keeps calling the replicator with an EMPTY candidate list: a holder remembered from
-\* an earlier rule does not lower the shortage of a later rule - a phantom shortage that copies nothing.)
-Replicates(d) == \E k \in 1..Len(d.tasks) : Len(d.tasks[k].nodes) > 0
-Quiet(hs) == \A n \in hs : LET d == Decide27(n, hs, {}, {}) IN ~Replicates(d) /\ d.del = "none"
-NoTasks(hs) == \A n \in hs : ~Replicates(Decide27(n, hs, {}, {}))
- \* a check "replicates" when it hands the replicator a task with at least one candidate node. (With overlapping
-\* rules the code as found keeps calling the replicator with an EMPTY candidate list: a holder remembered from
-\* an earlier rule does not lower the shortage of a later rule - a phantom shortage that copies nothing.)
-Replicates(d) == \E k \in 1..Len(d.tasks) : Len(d.tasks[k].nodes) > 0
-Quiet(hs) == \A n \in hs : LET d == Decide27(n, hs, {}, {}) IN ~Replicates(d) /\ d.del = "none"
-NoTasks(hs) == \A n \in hs : ~Replicates(Decide27(n, hs, {}, {}))
- \* a check "replicates" when it hands the replicator a task with at least one candidate node. (With overlapping
-\* rules the code as found keeps calling the replicator with an EMPTY candidate list: a holder remembered from
-\* an earlier rule does not lower the shortage of a later rule - a phantom shortage that copies nothing.)
-Replicates(d) == \E k \in 1..Len(d.tasks) : Len(d.tasks[k].nodes) > 0
-Quiet(hs) == \A n \in hs : LET d == Decide27(n, hs, {}, {}) IN ~Replicates(d) /\ d.del = "none"
-NoTasks(hs) == \A n \in hs : ~Replicates(Decide27(n, hs, {}, {}))
-n\* a check "replicates" when it hands the replicator a task with at least one candidate node. (With overlapping
-\* rules the code as found keeps calling the replicator with an EMPTY candidate list: a holder remembered from
-\* an earlier rule does not lower the shortage of a later rule - a phantom shortage that copies nothing.)
-Replicates(d) == \E k \in 1..Len(d.tasks) : Len(d.tasks[k].nodes) > 0
-Quiet(hs) == \A n \in hs : LET d == Decide27(n, hs, {}, {}) IN ~Replicates(d) /\ d.del = "none"
-NoTasks(hs) == \A n \in hs : ~Replicates(Decide27(n, hs, {}, {}))
- \* a check "replicates" when it hands the replicator a task with at least one candidate node. (With overlapping
-\* rules the code as found keeps calling the replicator with an EMPTY candidate list: a holder remembered from
-\* an earlier rule does not lower the shortage of a later rule - a phantom shortage that copies nothing.)
-Replicates(d) == \E k \in 1..Len(d.tasks) : Len(d.tasks[k].nodes) > 0
-Quiet(hs) == \A n \in hs : LET d == Decide27(n, hs, {}, {}) IN ~Replicates(d) /\ d.del = "none"
-NoTasks(hs) == \A n \in hs : ~Replicates(Decide27(n, hs, {}, {}))
-|\* a check "replicates" when it hands the replicator a task with at least one candidate node. (With overlapping
-\* rules the code as found keeps calling the replicator with an EMPTY candidate list: a holder remembered from
-\* an earlier rule does not lower the shortage of a later rule - a phantom shortage that copies nothing.)
-Replicates(d) == \E k \in 1..Len(d.tasks) : Len(d.tasks[k].nodes) > 0
-Quiet(hs) == \A n \in hs : LET d == Decide27(n, hs, {}, {}) IN ~Replicates(d) /\ d.del = "none"
-NoTasks(hs) == \A n \in hs : ~Replicates(Decide27(n, hs, {}, {}))
--\* a check "replicates" when it hands the replicator a task with at least one candidate node. (With overlapping
-\* rules the code as found keeps calling the replicator with an EMPTY candidate list: a holder remembered from
-\* an earlier rule does not lower the shortage of a later rule - a phantom shortage that copies nothing.)
-Replicates(d) == \E k \in 1..Len(d.tasks) : Len(d.tasks[k].nodes) > 0
-Quiet(hs) == \A n \in hs : LET d == Decide27(n, hs, {}, {}) IN ~Replicates(d) /\ d.del = "none"
-NoTasks(hs) == \A n \in hs : ~Replicates(Decide27(n, hs, {}, {}))
->\* a check "replicates" when it hands the replicator a task with at least one candidate node. (With overlapping
-\* rules the code as found keeps calling the replicator with an EMPTY candidate list: a holder remembered from
-\* an earlier rule does not lower the shortage of a later rule - a phantom shortage that copies nothing.)
-Replicates(d) == \E k \in 1..Len(d.tasks) : Len(d.tasks[k].nodes) > 0
-Quiet(hs) == \A n \in hs : LET d == Decide27(n, hs, {}, {}) IN ~Replicates(d) /\ d.del = "none"
-NoTasks(hs) == \A n \in hs : ~Replicates(Decide27(n, hs, {}, {}))
- \* a check "replicates" when it hands the replicator a task with at least one candidate node. (With overlapping
-\* rules the code as found keeps calling the replicator with an EMPTY candidate list: a holder remembered from
-\* an earlier rule does not lower the shortage of a later rule - a phantom shortage that copies nothing.)
-Replicates(d) == \E k \in 1..Len(d.tasks) : Len(d.tasks[k].nodes) > 0
-Quiet(hs) == \A n \in hs : LET d == Decide27(n, hs, {}, {}) IN ~Replicates(d) /\ d.del = "none"
-NoTasks(hs) == \A n \in hs : ~Replicates(Decide27(n, hs, {}, {}))
-r\* a check "replicates" when it hands the replicator a task with at least one candidate node. (With overlapping
-\* rules the code as found keeps calling the replicator with an EMPTY candidate list: a holder remembered from
-\* an earlier rule does not lower the shortage of a later rule - a phantom shortage that copies nothing.)
-Replicates(d) == \E k \in 1..Len(d.tasks) : Len(d.tasks[k].nodes) > 0
-Quiet(hs) == \A n \in hs : LET d == Decide27(n, hs, {}, {}) IN ~Replicates(d) /\ d.del = "none"
-NoTasks(hs) == \A n \in hs : ~Replicates(Decide27(n, hs, {}, {}))
-u\* a check "replicates" when it hands the replicator a task with at least one candidate node. (With overlapping
-\* rules the code as found keeps calling the replicator with an EMPTY candidate list: a holder remembered from
-\* an earlier rule does not lower the shortage of a later rule - a phantom shortage that copies nothing.)
-Replicates(d) == \E k \in 1..Len(d.tasks) : Len(d.tasks[k].nodes) > 0
-Quiet(hs) == \A n \in hs : LET d == Decide27(n, hs, {}, {}) IN ~Replicates(d) /\ d.del = "none"
-NoTasks(hs) == \A n \in hs : ~Replicates(Decide27(n, hs, {}, {}))
-l\* a check "replicates" when it hands the replicator a task with at least one candidate node. (With overlapping
-\* rules the code as found keeps calling the replicator with an EMPTY candidate list: a holder remembered from
-\* an earlier rule does not lower the shortage of a later rule - a phantom shortage that copies nothing.)
-Replicates(d) == \E k \in 1..Len(d.tasks) : Len(d.tasks[k].nodes) > 0
-Quiet(hs) == \A n \in hs : LET d == Decide27(n, hs, {}, {}) IN ~Replicates(d) /\ d.del = "none"
-NoTasks(hs) == \A n \in hs : ~Replicates(Decide27(n, hs, {}, {}))
-e\* a check "replicates" when it hands the replicator a task with at least one candidate node. (With overlapping
-\* rules the code as found keeps calling the replicator with an EMPTY candidate list: a holder remembered from
-\* an earlier rule does not lower the shortage of a later rule - a phantom shortage that copies nothing.)
-Replicates(d) == \E k \in 1..Len(d.tasks) : Len(d.tasks[k].nodes) > 0
-Quiet(hs) == \A n \in hs : LET d == Decide27(n, hs, {}, {}) IN ~Replicates(d) /\ d.del = "none"
-NoTasks(hs) == \A n \in hs : ~Replicates(Decide27(n, hs, {}, {}))
-s\* a check "replicates" when it hands the replicator a task with at least one candidate node. (With overlapping
-\* rules the code as found keeps calling the replicator with an EMPTY candidate list: a holder remembered from
-\* an earlier rule does not lower the shortage of a later rule - a phantom shortage that copies nothing.)
-Replicates(d) == \E k \in 1..Len(d.tasks) : Len(d.tasks[k].nodes) > 0
-Quiet(hs) == \A n \in hs : LET d == Decide27(n, hs, {}, {}) IN ~Replicates(d) /\ d.del = "none"
-NoTasks(hs) == \A n \in hs : ~Replicates(Decide27(n, hs, {}, {}))
-[\* a check "replicates" when it hands the replicator a task with at least one candidate node. (With overlapping
-\* rules the code as found keeps calling the replicator with an EMPTY candidate list: a holder remembered from
-\* an earlier rule does not lower the shortage of a later rule - a phantom shortage that copies nothing.)
-Replicates(d) == \E k \in 1..Len(d.tasks) : Len(d.tasks[k].nodes) > 0
-Quiet(hs) == \A n \in hs : LET d == Decide27(n, hs, {}, {}) IN ~Replicates(d) /\ d.del = "none"
-NoTasks(hs) == \A n \in hs : ~Replicates(Decide27(n, hs, {}, {}))
-k\* a check "replicates" when it hands the replicator a task with at least one candidate node. (With overlapping
-\* rules the code as found keeps calling the replicator with an EMPTY candidate list: a holder remembered from
-\* an earlier rule does not lower the shortage of a later rule - a phantom shortage that copies nothing.)
-Replicates(d) == \E k \in 1..Len(d.tasks) : Len(d.tasks[k].nodes) > 0
-Quiet(hs) == \A n \in hs : LET d == Decide27(n, hs, {}, {}) IN ~Replicates(d) /\ d.del = "none"
-NoTasks(hs) == \A n \in hs : ~Replicates(Decide27(n, hs, {}, {}))
-x\* a check "replicates" when it hands the replicator a task with at least one candidate node. (With overlapping
-\* rules the code as found keeps calling the replicator with an EMPTY candidate list: a holder remembered from
-\* an earlier rule does not lower the shortage of a later rule - a phantom shortage that copies nothing.)
-Replicates(d) == \E k \in 1..Len(d.tasks) : Len(d.tasks[k].nodes) > 0
-Quiet(hs) == \A n \in hs : LET d == Decide27(n, hs, {}, {}) IN ~Replicates(d) /\ d.del = "none"
-NoTasks(hs) == \A n \in hs : ~Replicates(Decide27(n, hs, {}, {}))
-]\* a check "replicates" when it hands the replicator a task with at least one candidate node. (With overlapping
-\* rules the code as found keeps calling the replicator with an EMPTY candidate list: a holder remembered from
-\* an earlier rule does not lower the shortage of a later rule - a phantom shortage that copies nothing.)
-Replicates(d) == \E k \in 1..Len(d.tasks) : Len(d.tasks[k].nodes) > 0
-Quiet(hs) == \A n \in hs : LET d == Decide27(n, hs, {}, {}) IN ~Replicates(d) /\ d.del = "none"
-NoTasks(hs) == \A n \in hs : ~Replicates(Decide27(n, hs, {}, {}))
-.\* a check "replicates" when it hands the replicator a task with at least one candidate node. (With overlapping
-\* rules the code as found keeps calling the replicator with an EMPTY candidate list: a holder remembered from
-\* an earlier rule does not lower the shortage of a later rule - a phantom shortage that copies nothing.)
-Replicates(d) == \E k \in 1..Len(d.tasks) : Len(d.tasks[k].nodes) > 0
-Quiet(hs) == \A n \in hs : LET d == Decide27(n, hs, {}, {}) IN ~Replicates(d) /\ d.del = "none"
-NoTasks(hs) == \A n \in hs : ~Replicates(Decide27(n, hs, {}, {}))
-n\* a check "replicates" when it hands the replicator a task with at least one candidate node. (With overlapping
-\* rules the code as found keeps calling the replicator with an EMPTY candidate list: a holder remembered from
-\* an earlier rule does not lower the shortage of a later rule - a phantom shortage that copies nothing.)
-Replicates(d) == \E k \in 1..Len(d.tasks) : Len(d.tasks[k].nodes) > 0
-Quiet(hs) == \A n \in hs : LET d == Decide27(n, hs, {}, {}) IN ~Replicates(d) /\ d.del = "none"
-NoTasks(hs) == \A n \in hs : ~Replicates(Decide27(n, hs, {}, {}))
-]\* a check "replicates" when it hands the replicator a task with at least one candidate node. (With overlapping
-\* rules the code as found keeps calling the replicator with an EMPTY candidate list: a holder remembered from
-\* an earlier rule does not lower the shortage of a later rule - a phantom shortage that copies nothing.)
-Replicates(d) == \E k \in 1..Len(d.tasks) : Len(d.tasks[k].nodes) > 0
-Quiet(hs) == \A n \in hs : LET d == Decide27(n, hs, {}, {}) IN ~Replicates(d) /\ d.del = "none"
-NoTasks(hs) == \A n \in hs : ~Replicates(Decide27(n, hs, {}, {}))
-]\* a check "replicates" when it hands the replicator a task with at least one candidate node. (With overlapping
-\* rules the code as found keeps calling the replicator with an EMPTY candidate list: a holder remembered from
-\* an earlier rule does not lower the shortage of a later rule - a phantom shortage that copies nothing.)
-Replicates(d) == \E k \in 1..Len(d.tasks) : Len(d.tasks[k].nodes) > 0
-Quiet(hs) == \A n \in hs : LET d == Decide27(n, hs, {}, {}) IN ~Replicates(d) /\ d.del = "none"
-NoTasks(hs) == \A n \in hs : ~Replicates(Decide27(n, hs, {}, {}))
-,\* a check "replicates" when it hands the replicator a task with at least one candidate node. (With overlapping
-\* rules the code as found keeps calling the replicator with an EMPTY candidate list: a holder remembered from
-\* an earlier rule does not lower the shortage of a later rule - a phantom shortage that copies nothing.)
-Replicates(d) == \E k \in 1..Len(d.tasks) : Len(d.tasks[k].nodes) > 0
-Quiet(hs) == \A n \in hs : LET d == Decide27(n, hs, {}, {}) IN ~Replicates(d) /\ d.del = "none"
-NoTasks(hs) == \A n \in hs : ~Replicates(Decide27(n, hs, {}, {}))
-
-\* a check "replicates" when it hands the replicator a task with at least one candidate node. (With overlapping
-\* rules the code as found keeps calling the replicator with an EMPTY candidate list: a holder remembered from
-\* an earlier rule does not lower the shortage of a later rule - a phantom shortage that copies nothing.)
-Replicates(d) == \E k \in 1..Len(d.tasks) : Len(d.tasks[k].nodes) > 0
-Quiet(hs) == \A n \in hs : LET d == Decide27(n, hs, {}, {}) IN ~Replicates(d) /\ d.del = "none"
-NoTasks(hs) == \A n \in hs : ~Replicates(Decide27(n, hs, {}, {}))
- \* a check "replicates" when it hands the replicator a task with at least one candidate node. (With overlapping
-\* rules the code as found keeps calling the replicator with an EMPTY candidate list: a holder remembered from
-\* an earlier rule does not lower the shortage of a later rule - a phantom shortage that copies nothing.)
-Replicates(d) == \E k \in 1..Len(d.tasks) : Len(d.tasks[k].nodes) > 0
-Quiet(hs) == \A n \in hs : LET d == Decide27(n, hs, {}, {}) IN ~Replicates(d) /\ d.del = "none"
-NoTasks(hs) == \A n \in hs : ~Replicates(Decide27(n, hs, {}, {}))
- \* a check "replicates" when it hands the replicator a task with at least one candidate node. (With overlapping
-\* rules the code as found keeps calling the replicator with an EMPTY candidate list: a holder remembered from
-\* an earlier rule does not lower the shortage of a later rule - a phantom shortage that copies nothing.)
-Replicates(d) == \E k \in 1..Len(d.tasks) : Len(d.tasks[k].nodes) > 0
-Quiet(hs) == \A n \in hs : LET d == Decide27(n, hs, {}, {}) IN ~Replicates(d) /\ d.del = "none"
-NoTasks(hs) == \A n \in hs : ~Replicates(Decide27(n, hs, {}, {}))
- \* a check "replicates" when it hands the replicator a task with at least one candidate node. (With overlapping
-\* rules the code as found keeps calling the replicator with an EMPTY candidate list: a holder remembered from
-\* an earlier rule does not lower the shortage of a later rule - a phantom shortage that copies nothing.)
-Replicates(d) == \E k \in 1..Len(d.tasks) : Len(d.tasks[k].nodes) > 0
-Quiet(hs) == \A n \in hs : LET d == Decide27(n, hs, {}, {}) IN ~Replicates(d) /\ d.del = "none"
-NoTasks(hs) == \A n \in hs : ~Replicates(Decide27(n, hs, {}, {}))
-e\* a check "replicates" when it hands the replicator a task with at least one candidate node. (With overlapping
-\* rules the code as found keeps calling the replicator with an EMPTY candidate list: a holder remembered from
-\* an earlier rule does not lower the shortage of a later rule - a phantom shortage that copies nothing.)
-Replicates(d) == \E k \in 1..Len(d.tasks) : Len(d.tasks[k].nodes) > 0
-Quiet(hs) == \A n \in hs : LET d == Decide27(n, hs, {}, {}) IN ~Replicates(d) /\ d.del = "none"
-NoTasks(hs) == \A n \in hs : ~Replicates(Decide27(n, hs, {}, {}))
-c\* a check "replicates" when it hands the replicator a task with at least one candidate node. (With overlapping
-\* rules the code as found keeps calling the replicator with an EMPTY candidate list: a holder remembered from
-\* an earlier rule does not lower the shortage of a later rule - a phantom shortage that copies nothing.)
-Replicates(d) == \E k \in 1..Len(d.tasks) : Len(d.tasks[k].nodes) > 0
-Quiet(hs) == \A n \in hs : LET d == Decide27(n, hs, {}, {}) IN ~Replicates(d) /\ d.del = "none"
-NoTasks(hs) == \A n \in hs : ~Replicates(Decide27(n, hs, {}, {}))
- \* a check "replicates" when it hands the replicator a task with at least one candidate node. (With overlapping
-\* rules the code as found keeps calling the replicator with an EMPTY candidate list: a holder remembered from
-\* an earlier rule does not lower the shortage of a later rule - a phantom shortage that copies nothing.)
-Replicates(d) == \E k \in 1..Len(d.tasks) : Len(d.tasks[k].nodes) > 0
-Quiet(hs) == \A n \in hs : LET d == Decide27(n, hs, {}, {}) IN ~Replicates(d) /\ d.del = "none"
-NoTasks(hs) == \A n \in hs : ~Replicates(Decide27(n, hs, {}, {}))
-|\* a check "replicates" when it hands the replicator a task with at least one candidate node. (With overlapping
-\* rules the code as found keeps calling the replicator with an EMPTY candidate list: a holder remembered from
-\* an earlier rule does not lower the shortage of a later rule - a phantom shortage that copies nothing.)
-Replicates(d) == \E k \in 1..Len(d.tasks) : Len(d.tasks[k].nodes) > 0
-Quiet(hs) == \A n \in hs : LET d == Decide27(n, hs, {}, {}) IN ~Replicates(d) /\ d.del = "none"
-NoTasks(hs) == \A n \in hs : ~Replicates(Decide27(n, hs, {}, {}))
--\* a check "replicates" when it hands the replicator a task with at least one candidate node. (With overlapping
-\* rules the code as found keeps calling the replicator with an EMPTY candidate list: a holder remembered from
-\* an earlier rule does not lower the shortage of a later rule - a phantom shortage that copies nothing.)
-Replicates(d) == \E k \in 1..Len(d.tasks) : Len(d.tasks[k].nodes) > 0
-Quiet(hs) == \A n \in hs : LET d == Decide27(n, hs, {}, {}) IN ~Replicates(d) /\ d.del = "none"
-NoTasks(hs) == \A n \in hs : ~Replicates(Decide27(n, hs, {}, {}))
->\* a check "replicates" when it hands the replicator a task with at least one candidate node. (With overlapping
-\* rules the code as found keeps calling the replicator with an EMPTY candidate list: a holder remembered from
-\* an earlier rule does not lower the shortage of a later rule - a phantom shortage that copies nothing.)
-Replicates(d) == \E k \in 1..Len(d.tasks) : Len(d.tasks[k].nodes) > 0
-Quiet(hs) == \A n \in hs : LET d == Decide27(n, hs, {}, {}) IN ~Replicates(d) /\ d.del = "none"
-NoTasks(hs) == \A n \in hs : ~Replicates(Decide27(n, hs, {}, {}))
- \* a check "replicates" when it hands the replicator a task with at least one candidate node. (With overlapping
-\* rules the code as found keeps calling the replicator with an EMPTY candidate list: a holder remembered from
-\* an earlier rule does not lower the shortage of a later rule - a phantom shortage that copies nothing.)
-Replicates(d) == \E k \in 1..Len(d.tasks) : Len(d.tasks[k].nodes) > 0
-Quiet(hs) == \A n \in hs : LET d == Decide27(n, hs, {}, {}) IN ~Replicates(d) /\ d.del = "none"
-NoTasks(hs) == \A n \in hs : ~Replicates(Decide27(n, hs, {}, {}))
-<\* a check "replicates" when it hands the replicator a task with at least one candidate node. (With overlapping
-\* rules the code as found keeps calling the replicator with an EMPTY candidate list: a holder remembered from
-\* an earlier rule does not lower the shortage of a later rule - a phantom shortage that copies nothing.)
-Replicates(d) == \E k \in 1..Len(d.tasks) : Len(d.tasks[k].nodes) > 0
-Quiet(hs) == \A n \in hs : LET d == Decide27(n, hs, {}, {}) IN ~Replicates(d) /\ d.del = "none"
-NoTasks(hs) == \A n \in hs : ~Replicates(Decide27(n, hs, {}, {}))
-<\* a check "replicates" when it hands the replicator a task with at least one candidate node. (With overlapping
-\* rules the code as found keeps calling the replicator with an EMPTY candidate list: a holder remembered from
-\* an earlier rule does not lower the shortage of a later rule - a phantom shortage that copies nothing.)
-Replicates(d) == \E k \in 1..Len(d.tasks) : Len(d.tasks[k].nodes) > 0
-Quiet(hs) == \A n \in hs : LET d == Decide27(n, hs, {}, {}) IN ~Replicates(d) /\ d.del = "none"
-NoTasks(hs) == \A n \in hs : ~Replicates(Decide27(n, hs, {}, {}))
->\* a check "replicates" when it hands the replicator a task with at least one candidate node. (With overlapping
-\* rules the code as found keeps calling the replicator with an EMPTY candidate list: a holder remembered from
-\* an earlier rule does not lower the shortage of a later rule - a phantom shortage that copies nothing.)
-Replicates(d) == \E k \in 1..Len(d.tasks) : Len(d.tasks[k].nodes) > 0
-Quiet(hs) == \A n \in hs : LET d == Decide27(n, hs, {}, {}) IN ~Replicates(d) /\ d.del = "none"
-NoTasks(hs) == \A n \in hs : ~Replicates(Decide27(n, hs, {}, {}))
->\* a check "replicates" when it hands the replicator a task with at least one candidate node. (With overlapping
-\* rules the code as found keeps calling the replicator with an EMPTY candidate list: a holder remembered from
-\* an earlier rule does not lower the shortage of a later rule - a phantom shortage that copies nothing.)
-Replicates(d) == \E k \in 1..Len(d.tasks) : Len(d.tasks[k].nodes) > 0
-Quiet(hs) == \A n \in hs : LET d == Decide27(n, hs, {}, {}) IN ~Replicates(d) /\ d.del = "none"
-NoTasks(hs) == \A n \in hs : ~Replicates(Decide27(n, hs, {}, {}))
-,\* a check "replicates" when it hands the replicator a task with at least one candidate node. (With overlapping
-\* rules the code as found keeps calling the replicator with an EMPTY candidate list: a holder remembered from
-\* an earlier rule does not lower the shortage of a later rule - a phantom shortage that copies nothing.)
-Replicates(d) == \E k \in 1..Len(d.tasks) : Len(d.tasks[k].nodes) > 0
-Quiet(hs) == \A n \in hs : LET d == Decide27(n, hs, {}, {}) IN ~Replicates(d) /\ d.del = "none"
-NoTasks(hs) == \A n \in hs : ~Replicates(Decide27(n, hs, {}, {}))
-
-\* a check "replicates" when it hands the replicator a task with at least one candidate node. (With overlapping
-\* rules the code as found keeps calling the replicator with an EMPTY candidate list: a holder remembered from
-\* an earlier rule does not lower the shortage of a later rule - a phantom shortage that copies nothing.)
-Replicates(d) == \E k \in 1..Len(d.tasks) : Len(d.tasks[k].nodes) > 0
-Quiet(hs) == \A n \in hs : LET d == Decide27(n, hs, {}, {}) IN ~Replicates(d) /\ d.del = "none"
-NoTasks(hs) == \A n \in hs : ~Replicates(Decide27(n, hs, {}, {}))
- \* a check "replicates" when it hands the replicator a task with at least one candidate node. (With overlapping
-\* rules the code as found keeps calling the replicator with an EMPTY candidate list: a holder remembered from
-\* an earlier rule does not lower the shortage of a later rule - a phantom shortage that copies nothing.)
-Replicates(d) == \E k \in 1..Len(d.tasks) : Len(d.tasks[k].nodes) > 0
-Quiet(hs) == \A n \in hs : LET d == Decide27(n, hs, {}, {}) IN ~Replicates(d) /\ d.del = "none"
-NoTasks(hs) == \A n \in hs : ~Replicates(Decide27(n, hs, {}, {}))
- \* a check "replicates" when it hands the replicator a task with at least one candidate node. (With overlapping
-\* rules the code as found keeps calling the replicator with an EMPTY candidate list: a holder remembered from
-\* an earlier rule does not lower the shortage of a later rule - a phantom shortage that copies nothing.)
-Replicates(d) == \E k \in 1..Len(d.tasks) : Len(d.tasks[k].nodes) > 0
-Quiet(hs) == \A n \in hs : LET d == Decide27(n, hs, {}, {}) IN ~Replicates(d) /\ d.del = "none"
-NoTasks(hs) == \A n \in hs : ~Replicates(Decide27(n, hs, {}, {}))
- \* a check "replicates" when it hands the replicator a task with at least one candidate node. (With overlapping
-\* rules the code as found keeps calling the replicator with an EMPTY candidate list: a holder remembered from
-\* an earlier rule does not lower the shortage of a later rule - a phantom shortage that copies nothing.)
-Replicates(d) == \E k \in 1..Len(d.tasks) : Len(d.tasks[k].nodes) > 0
-Quiet(hs) == \A n \in hs : LET d == Decide27(n, hs, {}, {}) IN ~Replicates(d) /\ d.del = "none"
-NoTasks(hs) == \A n \in hs : ~Replicates(Decide27(n, hs, {}, {}))
-a\* a check "replicates" when it hands the replicator a task with at least one candidate node. (With overlapping
-\* rules the code as found keeps calling the replicator with an EMPTY candidate list: a holder remembered from
-\* an earlier rule does not lower the shortage of a later rule - a phantom shortage that copies nothing.)
-Replicates(d) == \E k \in 1..Len(d.tasks) : Len(d.tasks[k].nodes) > 0
-Quiet(hs) == \A n \in hs : LET d == Decide27(n, hs, {}, {}) IN ~Replicates(d) /\ d.del = "none"
-NoTasks(hs) == \A n \in hs : ~Replicates(Decide27(n, hs, {}, {}))
-t\* a check "replicates" when it hands the replicator a task with at least one candidate node. (With overlapping
-\* rules the code as found keeps calling the replicator with an EMPTY candidate list: a holder remembered from
-\* an earlier rule does not lower the shortage of a later rule - a phantom shortage that copies nothing.)
-Replicates(d) == \E k \in 1..Len(d.tasks) : Len(d.tasks[k].nodes) > 0
-Quiet(hs) == \A n \in hs : LET d == Decide27(n, hs, {}, {}) IN ~Replicates(d) /\ d.del = "none"
-NoTasks(hs) == \A n \in hs : ~Replicates(Decide27(n, hs, {}, {}))
-t\* a check "replicates" when it hands the replicator a task with at least one candidate node. (With overlapping
-\* rules the code as found keeps calling the replicator with an EMPTY candidate list: a holder remembered from
-\* an earlier rule does not lower the shortage of a later rule - a phantom shortage that copies nothing.)
-Replicates(d) == \E k \in 1..Len(d.tasks) : Len(d.tasks[k].nodes) > 0
-Quiet(hs) == \A n \in hs : LET d == Decide27(n, hs, {}, {}) IN ~Replicates(d) /\ d.del = "none"
-NoTasks(hs) == \A n \in hs : ~Replicates(Decide27(n, hs, {}, {}))
-r\* a check "replicates" when it hands the replicator a task with at least one candidate node. (With overlapping
-\* rules the code as found keeps calling the replicator with an EMPTY candidate list: a holder remembered from
-\* an earlier rule does not lower the shortage of a later rule - a phantom shortage that copies nothing.)
-Replicates(d) == \E k \in 1..Len(d.tasks) : Len(d.tasks[k].nodes) > 0
-Quiet(hs) == \A n \in hs : LET d == Decide27(n, hs, {}, {}) IN ~Replicates(d) /\ d.del = "none"
-NoTasks(hs) == \A n \in hs : ~Replicates(Decide27(n, hs, {}, {}))
- \* a check "replicates" when it hands the replicator a task with at least one candidate node. (With overlapping
-\* rules the code as found keeps calling the replicator with an EMPTY candidate list: a holder remembered from
-\* an earlier rule does not lower the shortage of a later rule - a phantom shortage that copies nothing.)
-Replicates(d) == \E k \in 1..Len(d.tasks) : Len(d.tasks[k].nodes) > 0
-Quiet(hs) == \A n \in hs : LET d == Decide27(n, hs, {}, {}) IN ~Replicates(d) /\ d.del = "none"
-NoTasks(hs) == \A n \in hs : ~Replicates(Decide27(n, hs, {}, {}))
-|\* a check "replicates" when it hands the replicator a task with at least one candidate node. (With overlapping
-\* rules the code as found keeps calling the replicator with an EMPTY candidate list: a holder remembered from
-\* an earlier rule does not lower the shortage of a later rule - a phantom shortage that copies nothing.)
-Replicates(d) == \E k \in 1..Len(d.tasks) : Len(d.tasks[k].nodes) > 0
-Quiet(hs) == \A n \in hs : LET d == Decide27(n, hs, {}, {}) IN ~Replicates(d) /\ d.del = "none"
-NoTasks(hs) == \A n \in hs : ~Replicates(Decide27(n, hs, {}, {}))
--\* a check "replicates" when it hands the replicator a task with at least one candidate node. (With overlapping
-\* rules the code as found keeps calling the replicator with an EMPTY candidate list: a holder remembered from
-\* an earlier rule does not lower the shortage of a later rule - a phantom shortage that copies nothing.)
-Replicates(d) == \E k \in 1..Len(d.tasks) : Len(d.tasks[k].nodes) > 0
-Quiet(hs) == \A n \in hs : LET d == Decide27(n, hs, {}, {}) IN ~Replicates(d) /\ d.del = "none"
-NoTasks(hs) == \A n \in hs : ~Replicates(Decide27(n, hs, {}, {}))
->\* a check "replicates" when it hands the replicator a task with at least one candidate node. (With overlapping
-\* rules the code as found keeps calling the replicator with an EMPTY candidate list: a holder remembered from
-\* an earlier rule does not lower the shortage of a later rule - a phantom shortage that copies nothing.)
-Replicates(d) == \E k \in 1..Len(d.tasks) : Len(d.tasks[k].nodes) > 0
-Quiet(hs) == \A n \in hs : LET d == Decide27(n, hs, {}, {}) IN ~Replicates(d) /\ d.del = "none"
-NoTasks(hs) == \A n \in hs : ~Replicates(Decide27(n, hs, {}, {}))
- \* a check "replicates" when it hands the replicator a task with at least one candidate node. (With overlapping
-\* rules the code as found keeps calling the replicator with an EMPTY candidate list: a holder remembered from
-\* an earlier rule does not lower the shortage of a later rule - a phantom shortage that copies nothing.)
-Replicates(d) == \E k \in 1..Len(d.tasks) : Len(d.tasks[k].nodes) > 0
-Quiet(hs) == \A n \in hs : LET d == Decide27(n, hs, {}, {}) IN ~Replicates(d) /\ d.del = "none"
-NoTasks(hs) == \A n \in hs : ~Replicates(Decide27(n, hs, {}, {}))
-"\* a check "replicates" when it hands the replicator a task with at least one candidate node. (With overlapping
-\* rules the code as found keeps calling the replicator with an EMPTY candidate list: a holder remembered from
-\* an earlier rule does not lower the shortage of a later rule - a phantom shortage that copies nothing.)
-Replicates(d) == \E k \in 1..Len(d.tasks) : Len(d.tasks[k].nodes) > 0
-Quiet(hs) == \A n \in hs : LET d == Decide27(n, hs, {}, {}) IN ~Replicates(d) /\ d.del = "none"
-NoTasks(hs) == \A n \in hs : ~Replicates(Decide27(n, hs, {}, {}))
-n\* a check "replicates" when it hands the replicator a task with at least one candidate node. (With overlapping
-\* rules the code as found keeps calling the replicator with an EMPTY candidate list: a holder remembered from
-\* an earlier rule does not lower the shortage of a later rule - a phantom shortage that copies nothing.)
-Replicates(d) == \E k \in 1..Len(d.tasks) : Len(d.tasks[k].nodes) > 0
-Quiet(hs) == \A n \in hs : LET d == Decide27(n, hs, {}, {}) IN ~Replicates(d) /\ d.del = "none"
-NoTasks(hs) == \A n \in hs : ~Replicates(Decide27(n, hs, {}, {}))
-o\* a check "replicates" when it hands the replicator a task with at least one candidate node. (With overlapping
-\* rules the code as found keeps calling the replicator with an EMPTY candidate list: a holder remembered from
-\* an earlier rule does not lower the shortage of a later rule - a phantom shortage that copies nothing.)
-Replicates(d) == \E k \in 1..Len(d.tasks) : Len(d.tasks[k].nodes) > 0
-Quiet(hs) == \A n \in hs : LET d == Decide27(n, hs, {}, {}) IN ~Replicates(d) /\ d.del = "none"
-NoTasks(hs) == \A n \in hs : ~Replicates(Decide27(n, hs, {}, {}))
-n\* a check "replicates" when it hands the replicator a task with at least one candidate node. (With overlapping
-\* rules the code as found keeps calling the replicator with an EMPTY candidate list: a holder remembered from
-\* an earlier rule does not lower the shortage of a later rule - a phantom shortage that copies nothing.)
-Replicates(d) == \E k \in 1..Len(d.tasks) : Len(d.tasks[k].nodes) > 0
-Quiet(hs) == \A n \in hs : LET d == Decide27(n, hs, {}, {}) IN ~Replicates(d) /\ d.del = "none"
-NoTasks(hs) == \A n \in hs : ~Replicates(Decide27(n, hs, {}, {}))
-e\* a check "replicates" when it hands the replicator a task with at least one candidate node. (With overlapping
-\* rules the code as found keeps calling the replicator with an EMPTY candidate list: a holder remembered from
-\* an earlier rule does not lower the shortage of a later rule - a phantom shortage that copies nothing.)
-Replicates(d) == \E k \in 1..Len(d.tasks) : Len(d.tasks[k].nodes) > 0
-Quiet(hs) == \A n \in hs : LET d == Decide27(n, hs, {}, {}) IN ~Replicates(d) /\ d.del = "none"
-NoTasks(hs) == \A n \in hs : ~Replicates(Decide27(n, hs, {}, {}))
-"\* a check "replicates" when it hands the replicator a task with at least one candidate node. (With overlapping
-\* rules the code as found keeps calling the replicator with an EMPTY candidate list: a holder remembered from
-\* an earlier rule does not lower the shortage of a later rule - a phantom shortage that copies nothing.)
-Replicates(d) == \E k \in 1..Len(d.tasks) : Len(d.tasks[k].nodes) > 0
-Quiet(hs) == \A n \in hs : LET d == Decide27(n, hs, {}, {}) IN ~Replicates(d) /\ d.del = "none"
-NoTasks(hs) == \A n \in hs : ~Replicates(Decide27(n, hs, {}, {}))
-,\* a check "replicates" when it hands the replicator a task with at least one candidate node. (With overlapping
-\* rules the code as found keeps calling the replicator with an EMPTY candidate list: a holder remembered from
-\* an earlier rule does not lower the shortage of a later rule - a phantom shortage that copies nothing.)
-Replicates(d) == \E k \in 1..Len(d.tasks) : Len(d.tasks[k].nodes) > 0
-Quiet(hs) == \A n \in hs : LET d == Decide27(n, hs, {}, {}) IN ~Replicates(d) /\ d.del = "none"
-NoTasks(hs) == \A n \in hs : ~Replicates(Decide27(n, hs, {}, {}))
- \* a check "replicates" when it hands the replicator a task with at least one candidate node. (With overlapping
-\* rules the code as found keeps calling the replicator with an EMPTY candidate list: a holder remembered from
-\* an earlier rule does not lower the shortage of a later rule - a phantom shortage that copies nothing.)
-Replicates(d) == \E k \in 1..Len(d.tasks) : Len(d.tasks[k].nodes) > 0
-Quiet(hs) == \A n \in hs : LET d == Decide27(n, hs, {}, {}) IN ~Replicates(d) /\ d.del = "none"
-NoTasks(hs) == \A n \in hs : ~Replicates(Decide27(n, hs, {}, {}))
-p\* a check "replicates" when it hands the replicator a task with at least one candidate node. (With overlapping
-\* rules the code as found keeps calling the replicator with an EMPTY candidate list: a holder remembered from
-\* an earlier rule does not lower the shortage of a later rule - a phantom shortage that copies nothing.)
-Replicates(d) == \E k \in 1..Len(d.tasks) : Len(d.tasks[k].nodes) > 0
-Quiet(hs) == \A n \in hs : LET d == Decide27(n, hs, {}, {}) IN ~Replicates(d) /\ d.del = "none"
-NoTasks(hs) == \A n \in hs : ~Replicates(Decide27(n, hs, {}, {}))
-a\* a check "replicates" when it hands the replicator a task with at least one candidate node. (With overlapping
-\* rules the code as found keeps calling the replicator with an EMPTY candidate list: a holder remembered from
-\* an earlier rule does not lower the shortage of a later rule - a phantom shortage that copies nothing.)
-Replicates(d) == \E k \in 1..Len(d.tasks) : Len(d.tasks[k].nodes) > 0
-Quiet(hs) == \A n \in hs : LET d == Decide27(n, hs, {}, {}) IN ~Replicates(d) /\ d.del = "none"
-NoTasks(hs) == \A n \in hs : ~Replicates(Decide27(n, hs, {}, {}))
-r\* a check "replicates" when it hands the replicator a task with at least one candidate node. (With overlapping
-\* rules the code as found keeps calling the replicator with an EMPTY candidate list: a holder remembered from
-\* an earlier rule does not lower the shortage of a later rule - a phantom shortage that copies nothing.)
-Replicates(d) == \E k \in 1..Len(d.tasks) : Len(d.tasks[k].nodes) > 0
-Quiet(hs) == \A n \in hs : LET d == Decide27(n, hs, {}, {}) IN ~Replicates(d) /\ d.del = "none"
-NoTasks(hs) == \A n \in hs : ~Replicates(Decide27(n, hs, {}, {}))
-t\* a check "replicates" when it hands the replicator a task with at least one candidate node. (With overlapping
-\* rules the code as found keeps calling the replicator with an EMPTY candidate list: a holder remembered from
-\* an earlier rule does not lower the shortage of a later rule - a phantom shortage that copies nothing.)
-Replicates(d) == \E k \in 1..Len(d.tasks) : Len(d.tasks[k].nodes) > 0
-Quiet(hs) == \A n \in hs : LET d == Decide27(n, hs, {}, {}) IN ~Replicates(d) /\ d.del = "none"
-NoTasks(hs) == \A n \in hs : ~Replicates(Decide27(n, hs, {}, {}))
- \* a check "replicates" when it hands the replicator a task with at least one candidate node. (With overlapping
-\* rules the code as found keeps calling the replicator with an EMPTY candidate list: a holder remembered from
-\* an earlier rule does not lower the shortage of a later rule - a phantom shortage that copies nothing.)
-Replicates(d) == \E k \in 1..Len(d.tasks) : Len(d.tasks[k].nodes) > 0
-Quiet(hs) == \A n \in hs : LET d == Decide27(n, hs, {}, {}) IN ~Replicates(d) /\ d.del = "none"
-NoTasks(hs) == \A n \in hs : ~Replicates(Decide27(n, hs, {}, {}))
-|\* a check "replicates" when it hands the replicator a task with at least one candidate node. (With overlapping
-\* rules the code as found keeps calling the replicator with an EMPTY candidate list: a holder remembered from
-\* an earlier rule does not lower the shortage of a later rule - a phantom shortage that copies nothing.)
-Replicates(d) == \E k \in 1..Len(d.tasks) : Len(d.tasks[k].nodes) > 0
-Quiet(hs) == \A n \in hs : LET d == Decide27(n, hs, {}, {}) IN ~Replicates(d) /\ d.del = "none"
-NoTasks(hs) == \A n \in hs : ~Replicates(Decide27(n, hs, {}, {}))
--\* a check "replicates" when it hands the replicator a task with at least one candidate node. (With overlapping
-\* rules the code as found keeps calling the replicator with an EMPTY candidate list: a holder remembered from
-\* an earlier rule does not lower the shortage of a later rule - a phantom shortage that copies nothing.)
-Replicates(d) == \E k \in 1..Len(d.tasks) : Len(d.tasks[k].nodes) > 0
-Quiet(hs) == \A n \in hs : LET d == Decide27(n, hs, {}, {}) IN ~Replicates(d) /\ d.del = "none"
-NoTasks(hs) == \A n \in hs : ~Replicates(Decide27(n, hs, {}, {}))
->\* a check "replicates" when it hands the replicator a task with at least one candidate node. (With overlapping
-\* rules the code as found keeps calling the replicator with an EMPTY candidate list: a holder remembered from
-\* an earlier rule does not lower the shortage of a later rule - a phantom shortage that copies nothing.)
-Replicates(d) == \E k \in 1..Len(d.tasks) : Len(d.tasks[k].nodes) > 0
-Quiet(hs) == \A n \in hs : LET d == Decide27(n, hs, {}, {}) IN ~Replicates(d) /\ d.del = "none"
-NoTasks(hs) == \A n \in hs : ~Replicates(Decide27(n, hs, {}, {}))
- \* a check "replicates" when it hands the replicator a task with at least one candidate node. (With overlapping
-\* rules the code as found keeps calling the replicator with an EMPTY candidate list: a holder remembered from
-\* an earlier rule does not lower the shortage of a later rule - a phantom shortage that copies nothing.)
-Replicates(d) == \E k \in 1..Len(d.tasks) : Len(d.tasks[k].nodes) > 0
-Quiet(hs) == \A n \in hs : LET d == Decide27(n, hs, {}, {}) IN ~Replicates(d) /\ d.del = "none"
-NoTasks(hs) == \A n \in hs : ~Replicates(Decide27(n, hs, {}, {}))
-[\* a check "replicates" when it hands the replicator a task with at least one candidate node. (With overlapping
-\* rules the code as found keeps calling the replicator with an EMPTY candidate list: a holder remembered from
-\* an earlier rule does not lower the shortage of a later rule - a phantom shortage that copies nothing.)
-Replicates(d) == \E k \in 1..Len(d.tasks) : Len(d.tasks[k].nodes) > 0
-Quiet(hs) == \A n \in hs : LET d == Decide27(n, hs, {}, {}) IN ~Replicates(d) /\ d.del = "none"
-NoTasks(hs) == \A n \in hs : ~Replicates(Decide27(n, hs, {}, {}))
-r\* a check "replicates" when it hands the replicator a task with at least one candidate node. (With overlapping
-\* rules the code as found keeps calling the replicator with an EMPTY candidate list: a holder remembered from
-\* an earlier rule does not lower the shortage of a later rule - a phantom shortage that copies nothing.)
-Replicates(d) == \E k \in 1..Len(d.tasks) : Len(d.tasks[k].nodes) > 0
-Quiet(hs) == \A n \in hs : LET d == Decide27(n, hs, {}, {}) IN ~Replicates(d) /\ d.del = "none"
-NoTasks(hs) == \A n \in hs : ~Replicates(Decide27(n, hs, {}, {}))
-u\* a check "replicates" when it hands the replicator a task with at least one candidate node. (With overlapping
-\* rules the code as found keeps calling the replicator with an EMPTY candidate list: a holder remembered from
-\* an earlier rule does not lower the shortage of a later rule - a phantom shortage that copies nothing.)
-Replicates(d) == \E k \in 1..Len(d.tasks) : Len(d.tasks[k].nodes) > 0
-Quiet(hs) == \A n \in hs : LET d == Decide27(n, hs, {}, {}) IN ~Replicates(d) /\ d.del = "none"
-NoTasks(hs) == \A n \in hs : ~Replicates(Decide27(n, hs, {}, {}))
-l\* a check "replicates" when it hands the replicator a task with at least one candidate node. (With overlapping
-\* rules the code as found keeps calling the replicator with an EMPTY candidate list: a holder remembered from
-\* an earlier rule does not lower the shortage of a later rule - a phantom shortage that copies nothing.)
-Replicates(d) == \E k \in 1..Len(d.tasks) : Len(d.tasks[k].nodes) > 0
-Quiet(hs) == \A n \in hs : LET d == Decide27(n, hs, {}, {}) IN ~Replicates(d) /\ d.del = "none"
-NoTasks(hs) == \A n \in hs : ~Replicates(Decide27(n, hs, {}, {}))
-e\* a check "replicates" when it hands the replicator a task with at least one candidate node. (With overlapping
-\* rules the code as found keeps calling the replicator with an EMPTY candidate list: a holder remembered from
-\* an earlier rule does not lower the shortage of a later rule - a phantom shortage that copies nothing.)
-Replicates(d) == \E k \in 1..Len(d.tasks) : Len(d.tasks[k].nodes) > 0
-Quiet(hs) == \A n \in hs : LET d == Decide27(n, hs, {}, {}) IN ~Replicates(d) /\ d.del = "none"
-NoTasks(hs) == \A n \in hs : ~Replicates(Decide27(n, hs, {}, {}))
- \* a check "replicates" when it hands the replicator a task with at least one candidate node. (With overlapping
-\* rules the code as found keeps calling the replicator with an EMPTY candidate list: a holder remembered from
-\* an earlier rule does not lower the shortage of a later rule - a phantom shortage that copies nothing.)
-Replicates(d) == \E k \in 1..Len(d.tasks) : Len(d.tasks[k].nodes) > 0
-Quiet(hs) == \A n \in hs : LET d == Decide27(n, hs, {}, {}) IN ~Replicates(d) /\ d.del = "none"
-NoTasks(hs) == \A n \in hs : ~Replicates(Decide27(n, hs, {}, {}))
-|\* a check "replicates" when it hands the replicator a task with at least one candidate node. (With overlapping
-\* rules the code as found keeps calling the replicator with an EMPTY candidate list: a holder remembered from
-\* an earlier rule does not lower the shortage of a later rule - a phantom shortage that copies nothing.)
-Replicates(d) == \E k \in 1..Len(d.tasks) : Len(d.tasks[k].nodes) > 0
-Quiet(hs) == \A n \in hs : LET d == Decide27(n, hs, {}, {}) IN ~Replicates(d) /\ d.del = "none"
-NoTasks(hs) == \A n \in hs : ~Replicates(Decide27(n, hs, {}, {}))
--\* a check "replicates" when it hands the replicator a task with at least one candidate node. (With overlapping
-\* rules the code as found keeps calling the replicator with an EMPTY candidate list: a holder remembered from
-\* an earlier rule does not lower the shortage of a later rule - a phantom shortage that copies nothing.)
-Replicates(d) == \E k \in 1..Len(d.tasks) : Len(d.tasks[k].nodes) > 0
-Quiet(hs) == \A n \in hs : LET d == Decide27(n, hs, {}, {}) IN ~Replicates(d) /\ d.del = "none"
-NoTasks(hs) == \A n \in hs : ~Replicates(Decide27(n, hs, {}, {}))
->\* a check "replicates" when it hands the replicator a task with at least one candidate node. (With overlapping
-\* rules the code as found keeps calling the replicator with an EMPTY candidate list: a holder remembered from
-\* an earlier rule does not lower the shortage of a later rule - a phantom shortage that copies nothing.)
-Replicates(d) == \E k \in 1..Len(d.tasks) : Len(d.tasks[k].nodes) > 0
-Quiet(hs) == \A n \in hs : LET d == Decide27(n, hs, {}, {}) IN ~Replicates(d) /\ d.del = "none"
-NoTasks(hs) == \A n \in hs : ~Replicates(Decide27(n, hs, {}, {}))
- \* a check "replicates" when it hands the replicator a task with at least one candidate node. (With overlapping
-\* rules the code as found keeps calling the replicator with an EMPTY candidate list: a holder remembered from
-\* an earlier rule does not lower the shortage of a later rule - a phantom shortage that copies nothing.)
-Replicates(d) == \E k \in 1..Len(d.tasks) : Len(d.tasks[k].nodes) > 0
-Quiet(hs) == \A n \in hs : LET d == Decide27(n, hs, {}, {}) IN ~Replicates(d) /\ d.del = "none"
-NoTasks(hs) == \A n \in hs : ~Replicates(Decide27(n, hs, {}, {}))
-0\* a check "replicates" when it hands the replicator a task with at least one candidate node. (With overlapping
-\* rules the code as found keeps calling the replicator with an EMPTY candidate list: a holder remembered from
-\* an earlier rule does not lower the shortage of a later rule - a phantom shortage that copies nothing.)
-Replicates(d) == \E k \in 1..Len(d.tasks) : Len(d.tasks[k].nodes) > 0
-Quiet(hs) == \A n \in hs : LET d == Decide27(n, hs, {}, {}) IN ~Replicates(d) /\ d.del = "none"
-NoTasks(hs) == \A n \in hs : ~Replicates(Decide27(n, hs, {}, {}))
-,\* a check "replicates" when it hands the replicator a task with at least one candidate node. (With overlapping
-\* rules the code as found keeps calling the replicator with an EMPTY candidate list: a holder remembered from
-\* an earlier rule does not lower the shortage of a later rule - a phantom shortage that copies nothing.)
-Replicates(d) == \E k \in 1..Len(d.tasks) : Len(d.tasks[k].nodes) > 0
-Quiet(hs) == \A n \in hs : LET d == Decide27(n, hs, {}, {}) IN ~Replicates(d) /\ d.del = "none"
-NoTasks(hs) == \A n \in hs : ~Replicates(Decide27(n, hs, {}, {}))
- \* a check "replicates" when it hands the replicator a task with at least one candidate node. (With overlapping
-\* rules the code as found keeps calling the replicator with an EMPTY candidate list: a holder remembered from
-\* an earlier rule does not lower the shortage of a later rule - a phantom shortage that copies nothing.)
-Replicates(d) == \E k \in 1..Len(d.tasks) : Len(d.tasks[k].nodes) > 0
-Quiet(hs) == \A n \in hs : LET d == Decide27(n, hs, {}, {}) IN ~Replicates(d) /\ d.del = "none"
-NoTasks(hs) == \A n \in hs : ~Replicates(Decide27(n, hs, {}, {}))
-i\* a check "replicates" when it hands the replicator a task with at least one candidate node. (With overlapping
-\* rules the code as found keeps calling the replicator with an EMPTY candidate list: a holder remembered from
-\* an earlier rule does not lower the shortage of a later rule - a phantom shortage that copies nothing.)
-Replicates(d) == \E k \in 1..Len(d.tasks) : Len(d.tasks[k].nodes) > 0
-Quiet(hs) == \A n \in hs : LET d == Decide27(n, hs, {}, {}) IN ~Replicates(d) /\ d.del = "none"
-NoTasks(hs) == \A n \in hs : ~Replicates(Decide27(n, hs, {}, {}))
-d\* a check "replicates" when it hands the replicator a task with at least one candidate node. (With overlapping
-\* rules the code as found keeps calling the replicator with an EMPTY candidate list: a holder remembered from
-\* an earlier rule does not lower the shortage of a later rule - a phantom shortage that copies nothing.)
-Replicates(d) == \E k \in 1..Len(d.tasks) : Len(d.tasks[k].nodes) > 0
-Quiet(hs) == \A n \in hs : LET d == Decide27(n, hs, {}, {}) IN ~Replicates(d) /\ d.del = "none"
-NoTasks(hs) == \A n \in hs : ~Replicates(Decide27(n, hs, {}, {}))
-x\* a check "replicates" when it hands the replicator a task with at least one candidate node. (With overlapping
-\* rules the code as found keeps calling the replicator with an EMPTY candidate list: a holder remembered from
-\* an earlier rule does not lower the shortage of a later rule - a phantom shortage that copies nothing.)
-Replicates(d) == \E k \in 1..Len(d.tasks) : Len(d.tasks[k].nodes) > 0
-Quiet(hs) == \A n \in hs : LET d == Decide27(n, hs, {}, {}) IN ~Replicates(d) /\ d.del = "none"
-NoTasks(hs) == \A n \in hs : ~Replicates(Decide27(n, hs, {}, {}))
- \* a check "replicates" when it hands the replicator a task with at least one candidate node. (With overlapping
-\* rules the code as found keeps calling the replicator with an EMPTY candidate list: a holder remembered from
-\* an earlier rule does not lower the shortage of a later rule - a phantom shortage that copies nothing.)
-Replicates(d) == \E k \in 1..Len(d.tasks) : Len(d.tasks[k].nodes) > 0
-Quiet(hs) == \A n \in hs : LET d == Decide27(n, hs, {}, {}) IN ~Replicates(d) /\ d.del = "none"
-NoTasks(hs) == \A n \in hs : ~Replicates(Decide27(n, hs, {}, {}))
-|\* a check "replicates" when it hands the replicator a task with at least one candidate node. (With overlapping
-\* rules the code as found keeps calling the replicator with an EMPTY candidate list: a holder remembered from
-\* an earlier rule does not lower the shortage of a later rule - a phantom shortage that copies nothing.)
-Replicates(d) == \E k \in 1..Len(d.tasks) : Len(d.tasks[k].nodes) > 0
-Quiet(hs) == \A n \in hs : LET d == Decide27(n, hs, {}, {}) IN ~Replicates(d) /\ d.del = "none"
-NoTasks(hs) == \A n \in hs : ~Replicates(Decide27(n, hs, {}, {}))
--\* a check "replicates" when it hands the replicator a task with at least one candidate node. (With overlapping
-\* rules the code as found keeps calling the replicator with an EMPTY candidate list: a holder remembered from
-\* an earlier rule does not lower the shortage of a later rule - a phantom shortage that copies nothing.)
-Replicates(d) == \E k \in 1..Len(d.tasks) : Len(d.tasks[k].nodes) > 0
-Quiet(hs) == \A n \in hs : LET d == Decide27(n, hs, {}, {}) IN ~Replicates(d) /\ d.del = "none"
-NoTasks(hs) == \A n \in hs : ~Replicates(Decide27(n, hs, {}, {}))
->\* a check "replicates" when it hands the replicator a task with at least one candidate node. (With overlapping
-\* rules the code as found keeps calling the replicator with an EMPTY candidate list: a holder remembered from
-\* an earlier rule does not lower the shortage of a later rule - a phantom shortage that copies nothing.)
-Replicates(d) == \E k \in 1..Len(d.tasks) : Len(d.tasks[k].nodes) > 0
-Quiet(hs) == \A n \in hs : LET d == Decide27(n, hs, {}, {}) IN ~Replicates(d) /\ d.del = "none"
-NoTasks(hs) == \A n \in hs : ~Replicates(Decide27(n, hs, {}, {}))
- \* a check "replicates" when it hands the replicator a task with at least one candidate node. (With overlapping
-\* rules the code as found keeps calling the replicator with an EMPTY candidate list: a holder remembered from
-\* an earlier rule does not lower the shortage of a later rule - a phantom shortage that copies nothing.)
-Replicates(d) == \E k \in 1..Len(d.tasks) : Len(d.tasks[k].nodes) > 0
-Quiet(hs) == \A n \in hs : LET d == Decide27(n, hs, {}, {}) IN ~Replicates(d) /\ d.del = "none"
-NoTasks(hs) == \A n \in hs : ~Replicates(Decide27(n, hs, {}, {}))
-0\* a check "replicates" when it hands the replicator a task with at least one candidate node. (With overlapping
-\* rules the code as found keeps calling the replicator with an EMPTY candidate list: a holder remembered from
-\* an earlier rule does not lower the shortage of a later rule - a phantom shortage that copies nothing.)
-Replicates(d) == \E k \in 1..Len(d.tasks) : Len(d.tasks[k].nodes) > 0
-Quiet(hs) == \A n \in hs : LET d == Decide27(n, hs, {}, {}) IN ~Replicates(d) /\ d.del = "none"
-NoTasks(hs) == \A n \in hs : ~Replicates(Decide27(n, hs, {}, {}))
-]\* a check "replicates" when it hands the replicator a task with at least one candidate node. (With overlapping
-\* rules the code as found keeps calling the replicator with an EMPTY candidate list: a holder remembered from
-\* an earlier rule does not lower the shortage of a later rule - a phantom shortage that copies nothing.)
-Replicates(d) == \E k \in 1..Len(d.tasks) : Len(d.tasks[k].nodes) > 0
-Quiet(hs) == \A n \in hs : LET d == Decide27(n, hs, {}, {}) IN ~Replicates(d) /\ d.del = "none"
-NoTasks(hs) == \A n \in hs : ~Replicates(Decide27(n, hs, {}, {}))
-,\* a check "replicates" when it hands the replicator a task with at least one candidate node. (With overlapping
-\* rules the code as found keeps calling the replicator with an EMPTY candidate list: a holder remembered from
-\* an earlier rule does not lower the shortage of a later rule - a phantom shortage that copies nothing.)
-Replicates(d) == \E k \in 1..Len(d.tasks) : Len(d.tasks[k].nodes) > 0
-Quiet(hs) == \A n \in hs : LET d == Decide27(n, hs, {}, {}) IN ~Replicates(d) /\ d.del = "none"
-NoTasks(hs) == \A n \in hs : ~Replicates(Decide27(n, hs, {}, {}))
- \* a check "replicates" when it hands the replicator a task with at least one candidate node. (With overlapping
-\* rules the code as found keeps calling the replicator with an EMPTY candidate list: a holder remembered from
-\* an earlier rule does not lower the shortage of a later rule - a phantom shortage that copies nothing.)
-Replicates(d) == \E k \in 1..Len(d.tasks) : Len(d.tasks[k].nodes) > 0
-Quiet(hs) == \A n \in hs : LET d == Decide27(n, hs, {}, {}) IN ~Replicates(d) /\ d.del = "none"
-NoTasks(hs) == \A n \in hs : ~Replicates(Decide27(n, hs, {}, {}))
-n\* a check "replicates" when it hands the replicator a task with at least one candidate node. (With overlapping
-\* rules the code as found keeps calling the replicator with an EMPTY candidate list: a holder remembered from
-\* an earlier rule does not lower the shortage of a later rule - a phantom shortage that copies nothing.)
-Replicates(d) == \E k \in 1..Len(d.tasks) : Len(d.tasks[k].nodes) > 0
-Quiet(hs) == \A n \in hs : LET d == Decide27(n, hs, {}, {}) IN ~Replicates(d) /\ d.del = "none"
-NoTasks(hs) == \A n \in hs : ~Replicates(Decide27(n, hs, {}, {}))
-e\* a check "replicates" when it hands the replicator a task with at least one candidate node. (With overlapping
-\* rules the code as found keeps calling the replicator with an EMPTY candidate list: a holder remembered from
-\* an earlier rule does not lower the shortage of a later rule - a phantom shortage that copies nothing.)
-Replicates(d) == \E k \in 1..Len(d.tasks) : Len(d.tasks[k].nodes) > 0
-Quiet(hs) == \A n \in hs : LET d == Decide27(n, hs, {}, {}) IN ~Replicates(d) /\ d.del = "none"
-NoTasks(hs) == \A n \in hs : ~Replicates(Decide27(n, hs, {}, {}))
-t\* a check "replicates" when it hands the replicator a task with at least one candidate node. (With overlapping
-\* rules the code as found keeps calling the replicator with an EMPTY candidate list: a holder remembered from
-\* an earlier rule does not lower the shortage of a later rule - a phantom shortage that copies nothing.)
-Replicates(d) == \E k \in 1..Len(d.tasks) : Len(d.tasks[k].nodes) > 0
-Quiet(hs) == \A n \in hs : LET d == Decide27(n, hs, {}, {}) IN ~Replicates(d) /\ d.del = "none"
-NoTasks(hs) == \A n \in hs : ~Replicates(Decide27(n, hs, {}, {}))
-e\* a check "replicates" when it hands the replicator a task with at least one candidate node. (With overlapping
-\* rules the code as found keeps calling the replicator with an EMPTY candidate list: a holder remembered from
-\* an earlier rule does not lower the shortage of a later rule - a phantom shortage that copies nothing.)
-Replicates(d) == \E k \in 1..Len(d.tasks) : Len(d.tasks[k].nodes) > 0
-Quiet(hs) == \A n \in hs : LET d == Decide27(n, hs, {}, {}) IN ~Replicates(d) /\ d.del = "none"
-NoTasks(hs) == \A n \in hs : ~Replicates(Decide27(n, hs, {}, {}))
-r\* a check "replicates" when it hands the replicator a task with at least one candidate node. (With overlapping
-\* rules the code as found keeps calling the replicator with an EMPTY candidate list: a holder remembered from
-\* an earlier rule does not lower the shortage of a later rule - a phantom shortage that copies nothing.)
-Replicates(d) == \E k \in 1..Len(d.tasks) : Len(d.tasks[k].nodes) > 0
-Quiet(hs) == \A n \in hs : LET d == Decide27(n, hs, {}, {}) IN ~Replicates(d) /\ d.del = "none"
-NoTasks(hs) == \A n \in hs : ~Replicates(Decide27(n, hs, {}, {}))
-r\* a check "replicates" when it hands the replicator a task with at least one candidate node. (With overlapping
-\* rules the code as found keeps calling the replicator with an EMPTY candidate list: a holder remembered from
-\* an earlier rule does not lower the shortage of a later rule - a phantom shortage that copies nothing.)
-Replicates(d) == \E k \in 1..Len(d.tasks) : Len(d.tasks[k].nodes) > 0
-Quiet(hs) == \A n \in hs : LET d == Decide27(n, hs, {}, {}) IN ~Replicates(d) /\ d.del = "none"
-NoTasks(hs) == \A n \in hs : ~Replicates(Decide27(n, hs, {}, {}))
- \* a check "replicates" when it hands the replicator a task with at least one candidate node. (With overlapping
-\* rules the code as found keeps calling the replicator with an EMPTY candidate list: a holder remembered from
-\* an earlier rule does not lower the shortage of a later rule - a phantom shortage that copies nothing.)
-Replicates(d) == \E k \in 1..Len(d.tasks) : Len(d.tasks[k].nodes) > 0
-Quiet(hs) == \A n \in hs : LET d == Decide27(n, hs, {}, {}) IN ~Replicates(d) /\ d.del = "none"
-NoTasks(hs) == \A n \in hs : ~Replicates(Decide27(n, hs, {}, {}))
-|\* a check "replicates" when it hands the replicator a task with at least one candidate node. (With overlapping
-\* rules the code as found keeps calling the replicator with an EMPTY candidate list: a holder remembered from
-\* an earlier rule does not lower the shortage of a later rule - a phantom shortage that copies nothing.)
-Replicates(d) == \E k \in 1..Len(d.tasks) : Len(d.tasks[k].nodes) > 0
-Quiet(hs) == \A n \in hs : LET d == Decide27(n, hs, {}, {}) IN ~Replicates(d) /\ d.del = "none"
-NoTasks(hs) == \A n \in hs : ~Replicates(Decide27(n, hs, {}, {}))
--\* a check "replicates" when it hands the replicator a task with at least one candidate node. (With overlapping
-\* rules the code as found keeps calling the replicator with an EMPTY candidate list: a holder remembered from
-\* an earlier rule does not lower the shortage of a later rule - a phantom shortage that copies nothing.)
-Replicates(d) == \E k \in 1..Len(d.tasks) : Len(d.tasks[k].nodes) > 0
-Quiet(hs) == \A n \in hs : LET d == Decide27(n, hs, {}, {}) IN ~Replicates(d) /\ d.del = "none"
-NoTasks(hs) == \A n \in hs : ~Replicates(Decide27(n, hs, {}, {}))
->\* a check "replicates" when it hands the replicator a task with at least one candidate node. (With overlapping
-\* rules the code as found keeps calling the replicator with an EMPTY candidate list: a holder remembered from
-\* an earlier rule does not lower the shortage of a later rule - a phantom shortage that copies nothing.)
-Replicates(d) == \E k \in 1..Len(d.tasks) : Len(d.tasks[k].nodes) > 0
-Quiet(hs) == \A n \in hs : LET d == Decide27(n, hs, {}, {}) IN ~Replicates(d) /\ d.del = "none"
-NoTasks(hs) == \A n \in hs : ~Replicates(Decide27(n, hs, {}, {}))
- \* a check "replicates" when it hands the replicator a task with at least one candidate node. (With overlapping
-\* rules the code as found keeps calling the replicator with an EMPTY candidate list: a holder remembered from
-\* an earlier rule does not lower the shortage of a later rule - a phantom shortage that copies nothing.)
-Replicates(d) == \E k \in 1..Len(d.tasks) : Len(d.tasks[k].nodes) > 0
-Quiet(hs) == \A n \in hs : LET d == Decide27(n, hs, {}, {}) IN ~Replicates(d) /\ d.del = "none"
-NoTasks(hs) == \A n \in hs : ~Replicates(Decide27(n, hs, {}, {}))
-"\* a check "replicates" when it hands the replicator a task with at least one candidate node. (With overlapping
-\* rules the code as found keeps calling the replicator with an EMPTY candidate list: a holder remembered from
-\* an earlier rule does not lower the shortage of a later rule - a phantom shortage that copies nothing.)
-Replicates(d) == \E k \in 1..Len(d.tasks) : Len(d.tasks[k].nodes) > 0
-Quiet(hs) == \A n \in hs : LET d == Decide27(n, hs, {}, {}) IN ~Replicates(d) /\ d.del = "none"
-NoTasks(hs) == \A n \in hs : ~Replicates(Decide27(n, hs, {}, {}))
-n\* a check "replicates" when it hands the replicator a task with at least one candidate node. (With overlapping
-\* rules the code as found keeps calling the replicator with an EMPTY candidate list: a holder remembered from
-\* an earlier rule does not lower the shortage of a later rule - a phantom shortage that copies nothing.)
-Replicates(d) == \E k \in 1..Len(d.tasks) : Len(d.tasks[k].nodes) > 0
-Quiet(hs) == \A n \in hs : LET d == Decide27(n, hs, {}, {}) IN ~Replicates(d) /\ d.del = "none"
-NoTasks(hs) == \A n \in hs : ~Replicates(Decide27(n, hs, {}, {}))
-o\* a check "replicates" when it hands the replicator a task with at least one candidate node. (With overlapping
-\* rules the code as found keeps calling the replicator with an EMPTY candidate list: a holder remembered from
-\* an earlier rule does not lower the shortage of a later rule - a phantom shortage that copies nothing.)
-Replicates(d) == \E k \in 1..Len(d.tasks) : Len(d.tasks[k].nodes) > 0
-Quiet(hs) == \A n \in hs : LET d == Decide27(n, hs, {}, {}) IN ~Replicates(d) /\ d.del = "none"
-NoTasks(hs) == \A n \in hs : ~Replicates(Decide27(n, hs, {}, {}))
-n\* a check "replicates" when it hands the replicator a task with at least one candidate node. (With overlapping
-\* rules the code as found keeps calling the replicator with an EMPTY candidate list: a holder remembered from
-\* an earlier rule does not lower the shortage of a later rule - a phantom shortage that copies nothing.)
-Replicates(d) == \E k \in 1..Len(d.tasks) : Len(d.tasks[k].nodes) > 0
-Quiet(hs) == \A n \in hs : LET d == Decide27(n, hs, {}, {}) IN ~Replicates(d) /\ d.del = "none"
-NoTasks(hs) == \A n \in hs : ~Replicates(Decide27(n, hs, {}, {}))
-e\* a check "replicates" when it hands the replicator a task with at least one candidate node. (With overlapping
-\* rules the code as found keeps calling the replicator with an EMPTY candidate list: a holder remembered from
-\* an earlier rule does not lower the shortage of a later rule - a phantom shortage that copies nothing.)
-Replicates(d) == \E k \in 1..Len(d.tasks) : Len(d.tasks[k].nodes) > 0
-Quiet(hs) == \A n \in hs : LET d == Decide27(n, hs, {}, {}) IN ~Replicates(d) /\ d.del = "none"
-NoTasks(hs) == \A n \in hs : ~Replicates(Decide27(n, hs, {}, {}))
-"\* a check "replicates" when it hands the replicator a task with at least one candidate node. (With overlapping
-\* rules the code as found keeps calling the replicator with an EMPTY candidate list: a holder remembered from
-\* an earlier rule does not lower the shortage of a later rule - a phantom shortage that copies nothing.)
-Replicates(d) == \E k \in 1..Len(d.tasks) : Len(d.tasks[k].nodes) > 0
-Quiet(hs) == \A n \in hs : LET d == Decide27(n, hs, {}, {}) IN ~Replicates(d) /\ d.del = "none"
-NoTasks(hs) == \A n \in hs : ~Replicates(Decide27(n, hs, {}, {}))
-,\* a check "replicates" when it hands the replicator a task with at least one candidate node. (With overlapping
-\* rules the code as found keeps calling the replicator with an EMPTY candidate list: a holder remembered from
-\* an earlier rule does not lower the shortage of a later rule - a phantom shortage that copies nothing.)
-Replicates(d) == \E k \in 1..Len(d.tasks) : Len(d.tasks[k].nodes) > 0
-Quiet(hs) == \A n \in hs : LET d == Decide27(n, hs, {}, {}) IN ~Replicates(d) /\ d.del = "none"
-NoTasks(hs) == \A n \in hs : ~Replicates(Decide27(n, hs, {}, {}))
- \* a check "replicates" when it hands the replicator a task with at least one candidate node. (With overlapping
-\* rules the code as found keeps calling the replicator with an EMPTY candidate list: a holder remembered from
-\* an earlier rule does not lower the shortage of a later rule - a phantom shortage that copies nothing.)
-Replicates(d) == \E k \in 1..Len(d.tasks) : Len(d.tasks[k].nodes) > 0
-Quiet(hs) == \A n \in hs : LET d == Decide27(n, hs, {}, {}) IN ~Replicates(d) /\ d.del = "none"
-NoTasks(hs) == \A n \in hs : ~Replicates(Decide27(n, hs, {}, {}))
-i\* a check "replicates" when it hands the replicator a task with at least one candidate node. (With overlapping
-\* rules the code as found keeps calling the replicator with an EMPTY candidate list: a holder remembered from
-\* an earlier rule does not lower the shortage of a later rule - a phantom shortage that copies nothing.)
-Replicates(d) == \E k \in 1..Len(d.tasks) : Len(d.tasks[k].nodes) > 0
-Quiet(hs) == \A n \in hs : LET d == Decide27(n, hs, {}, {}) IN ~Replicates(d) /\ d.del = "none"
-NoTasks(hs) == \A n \in hs : ~Replicates(Decide27(n, hs, {}, {}))
-n\* a check "replicates" when it hands the replicator a task with at least one candidate node. (With overlapping
-\* rules the code as found keeps calling the replicator with an EMPTY candidate list: a holder remembered from
-\* an earlier rule does not lower the shortage of a later rule - a phantom shortage that copies nothing.)
-Replicates(d) == \E k \in 1..Len(d.tasks) : Len(d.tasks[k].nodes) > 0
-Quiet(hs) == \A n \in hs : LET d == Decide27(n, hs, {}, {}) IN ~Replicates(d) /\ d.del = "none"
-NoTasks(hs) == \A n \in hs : ~Replicates(Decide27(n, hs, {}, {}))
-N\* a check "replicates" when it hands the replicator a task with at least one candidate node. (With overlapping
-\* rules the code as found keeps calling the replicator with an EMPTY candidate list: a holder remembered from
-\* an earlier rule does not lower the shortage of a later rule - a phantom shortage that copies nothing.)
-Replicates(d) == \E k \in 1..Len(d.tasks) : Len(d.tasks[k].nodes) > 0
-Quiet(hs) == \A n \in hs : LET d == Decide27(n, hs, {}, {}) IN ~Replicates(d) /\ d.del = "none"
-NoTasks(hs) == \A n \in hs : ~Replicates(Decide27(n, hs, {}, {}))
-e\* a check "replicates" when it hands the replicator a task with at least one candidate node. (With overlapping
-\* rules the code as found keeps calling the replicator with an EMPTY candidate list: a holder remembered from
-\* an earlier rule does not lower the shortage of a later rule - a phantom shortage that copies nothing.)
-Replicates(d) == \E k \in 1..Len(d.tasks) : Len(d.tasks[k].nodes) > 0
-Quiet(hs) == \A n \in hs : LET d == Decide27(n, hs, {}, {}) IN ~Replicates(d) /\ d.del = "none"
-NoTasks(hs) == \A n \in hs : ~Replicates(Decide27(n, hs, {}, {}))
-t\* a check "replicates" when it hands the replicator a task with at least one candidate node. (With overlapping
-\* rules the code as found keeps calling the replicator with an EMPTY candidate list: a holder remembered from
-\* an earlier rule does not lower the shortage of a later rule - a phantom shortage that copies nothing.)
-Replicates(d) == \E k \in 1..Len(d.tasks) : Len(d.tasks[k].nodes) > 0
-Quiet(hs) == \A n \in hs : LET d == Decide27(n, hs, {}, {}) IN ~Replicates(d) /\ d.del = "none"
-NoTasks(hs) == \A n \in hs : ~Replicates(Decide27(n, hs, {}, {}))
-m\* a check "replicates" when it hands the replicator a task with at least one candidate node. (With overlapping
-\* rules the code as found keeps calling the replicator with an EMPTY candidate list: a holder remembered from
-\* an earlier rule does not lower the shortage of a later rule - a phantom shortage that copies nothing.)
-Replicates(d) == \E k \in 1..Len(d.tasks) : Len(d.tasks[k].nodes) > 0
-Quiet(hs) == \A n \in hs : LET d == Decide27(n, hs, {}, {}) IN ~Replicates(d) /\ d.del = "none"
-NoTasks(hs) == \A n \in hs : ~Replicates(Decide27(n, hs, {}, {}))
-a\* a check "replicates" when it hands the replicator a task with at least one candidate node. (With overlapping
-\* rules the code as found keeps calling the replicator with an EMPTY candidate list: a holder remembered from
-\* an earlier rule does not lower the shortage of a later rule - a phantom shortage that copies nothing.)
-Replicates(d) == \E k \in 1..Len(d.tasks) : Len(d.tasks[k].nodes) > 0
-Quiet(hs) == \A n \in hs : LET d == Decide27(n, hs, {}, {}) IN ~Replicates(d) /\ d.del = "none"
-NoTasks(hs) == \A n \in hs : ~Replicates(Decide27(n, hs, {}, {}))
-p\* a check "replicates" when it hands the replicator a task with at least one candidate node. (With overlapping
-\* rules the code as found keeps calling the replicator with an EMPTY candidate list: a holder remembered from
-\* an earlier rule does not lower the shortage of a later rule - a phantom shortage that copies nothing.)
-Replicates(d) == \E k \in 1..Len(d.tasks) : Len(d.tasks[k].nodes) > 0
-Quiet(hs) == \A n \in hs : LET d == Decide27(n, hs, {}, {}) IN ~Replicates(d) /\ d.del = "none"
-NoTasks(hs) == \A n \in hs : ~Replicates(Decide27(n, hs, {}, {}))
- \* a check "replicates" when it hands the replicator a task with at least one candidate node. (With overlapping
-\* rules the code as found keeps calling the replicator with an EMPTY candidate list: a holder remembered from
-\* an earlier rule does not lower the shortage of a later rule - a phantom shortage that copies nothing.)
-Replicates(d) == \E k \in 1..Len(d.tasks) : Len(d.tasks[k].nodes) > 0
-Quiet(hs) == \A n \in hs : LET d == Decide27(n, hs, {}, {}) IN ~Replicates(d) /\ d.del = "none"
-NoTasks(hs) == \A n \in hs : ~Replicates(Decide27(n, hs, {}, {}))
-|\* a check "replicates" when it hands the replicator a task with at least one candidate node. (With overlapping
-\* rules the code as found keeps calling the replicator with an EMPTY candidate list: a holder remembered from
-\* an earlier rule does not lower the shortage of a later rule - a phantom shortage that copies nothing.)
-Replicates(d) == \E k \in 1..Len(d.tasks) : Len(d.tasks[k].nodes) > 0
-Quiet(hs) == \A n \in hs : LET d == Decide27(n, hs, {}, {}) IN ~Replicates(d) /\ d.del = "none"
-NoTasks(hs) == \A n \in hs : ~Replicates(Decide27(n, hs, {}, {}))
--\* a check "replicates" when it hands the replicator a task with at least one candidate node. (With overlapping
-\* rules the code as found keeps calling the replicator with an EMPTY candidate list: a holder remembered from
-\* an earlier rule does not lower the shortage of a later rule - a phantom shortage that copies nothing.)
-Replicates(d) == \E k \in 1..Len(d.tasks) : Len(d.tasks[k].nodes) > 0
-Quiet(hs) == \A n \in hs : LET d == Decide27(n, hs, {}, {}) IN ~Replicates(d) /\ d.del = "none"
-NoTasks(hs) == \A n \in hs : ~Replicates(Decide27(n, hs, {}, {}))
->\* a check "replicates" when it hands the replicator a task with at least one candidate node. (With overlapping
-\* rules the code as found keeps calling the replicator with an EMPTY candidate list: a holder remembered from
-\* an earlier rule does not lower the shortage of a later rule - a phantom shortage that copies nothing.)
-Replicates(d) == \E k \in 1..Len(d.tasks) : Len(d.tasks[k].nodes) > 0
-Quiet(hs) == \A n \in hs : LET d == Decide27(n, hs, {}, {}) IN ~Replicates(d) /\ d.del = "none"
-NoTasks(hs) == \A n \in hs : ~Replicates(Decide27(n, hs, {}, {}))
- \* a check "replicates" when it hands the replicator a task with at least one candidate node. (With overlapping
-\* rules the code as found keeps calling the replicator with an EMPTY candidate list: a holder remembered from
-\* an earlier rule does not lower the shortage of a later rule - a phantom shortage that copies nothing.)
-Replicates(d) == \E k \in 1..Len(d.tasks) : Len(d.tasks[k].nodes) > 0
-Quiet(hs) == \A n \in hs : LET d == Decide27(n, hs, {}, {}) IN ~Replicates(d) /\ d.del = "none"
-NoTasks(hs) == \A n \in hs : ~Replicates(Decide27(n, hs, {}, {}))
-"\* a check "replicates" when it hands the replicator a task with at least one candidate node. (With overlapping
-\* rules the code as found keeps calling the replicator with an EMPTY candidate list: a holder remembered from
-\* an earlier rule does not lower the shortage of a later rule - a phantom shortage that copies nothing.)
-Replicates(d) == \E k \in 1..Len(d.tasks) : Len(d.tasks[k].nodes) > 0
-Quiet(hs) == \A n \in hs : LET d == Decide27(n, hs, {}, {}) IN ~Replicates(d) /\ d.del = "none"
-NoTasks(hs) == \A n \in hs : ~Replicates(Decide27(n, hs, {}, {}))
-y\* a check "replicates" when it hands the replicator a task with at least one candidate node. (With overlapping
-\* rules the code as found keeps calling the replicator with an EMPTY candidate list: a holder remembered from
-\* an earlier rule does not lower the shortage of a later rule - a phantom shortage that copies nothing.)
-Replicates(d) == \E k \in 1..Len(d.tasks) : Len(d.tasks[k].nodes) > 0
-Quiet(hs) == \A n \in hs : LET d == Decide27(n, hs, {}, {}) IN ~Replicates(d) /\ d.del = "none"
-NoTasks(hs) == \A n \in hs : ~Replicates(Decide27(n, hs, {}, {}))
-"\* a check "replicates" when it hands the replicator a task with at least one candidate node. (With overlapping
-\* rules the code as found keeps calling the replicator with an EMPTY candidate list: a holder remembered from
-\* an earlier rule does not lower the shortage of a later rule - a phantom shortage that copies nothing.)
-Replicates(d) == \E k \in 1..Len(d.tasks) : Len(d.tasks[k].nodes) > 0
-Quiet(hs) == \A n \in hs : LET d == Decide27(n, hs, {}, {}) IN ~Replicates(d) /\ d.del = "none"
-NoTasks(hs) == \A n \in hs : ~Replicates(Decide27(n, hs, {}, {}))
-,\* a check "replicates" when it hands the replicator a task with at least one candidate node. (With overlapping
-\* rules the code as found keeps calling the replicator with an EMPTY candidate list: a holder remembered from
-\* an earlier rule does not lower the shortage of a later rule - a phantom shortage that copies nothing.)
-Replicates(d) == \E k \in 1..Len(d.tasks) : Len(d.tasks[k].nodes) > 0
-Quiet(hs) == \A n \in hs : LET d == Decide27(n, hs, {}, {}) IN ~Replicates(d) /\ d.del = "none"
-NoTasks(hs) == \A n \in hs : ~Replicates(Decide27(n, hs, {}, {}))
- \* a check "replicates" when it hands the replicator a task with at least one candidate node. (With overlapping
-\* rules the code as found keeps calling the replicator with an EMPTY candidate list: a holder remembered from
-\* an earlier rule does not lower the shortage of a later rule - a phantom shortage that copies nothing.)
-Replicates(d) == \E k \in 1..Len(d.tasks) : Len(d.tasks[k].nodes) > 0
-Quiet(hs) == \A n \in hs : LET d == Decide27(n, hs, {}, {}) IN ~Replicates(d) /\ d.del = "none"
-NoTasks(hs) == \A n \in hs : ~Replicates(Decide27(n, hs, {}, {}))
-s\* a check "replicates" when it hands the replicator a task with at least one candidate node. (With overlapping
-\* rules the code as found keeps calling the replicator with an EMPTY candidate list: a holder remembered from
-\* an earlier rule does not lower the shortage of a later rule - a phantom shortage that copies nothing.)
-Replicates(d) == \E k \in 1..Len(d.tasks) : Len(d.tasks[k].nodes) > 0
-Quiet(hs) == \A n \in hs : LET d == Decide27(n, hs, {}, {}) IN ~Replicates(d) /\ d.del = "none"
-NoTasks(hs) == \A n \in hs : ~Replicates(Decide27(n, hs, {}, {}))
-h\* a check "replicates" when it hands the replicator a task with at least one candidate node. (With overlapping
-\* rules the code as found keeps calling the replicator with an EMPTY candidate list: a holder remembered from
-\* an earlier rule does not lower the shortage of a later rule - a phantom shortage that copies nothing.)
-Replicates(d) == \E k \in 1..Len(d.tasks) : Len(d.tasks[k].nodes) > 0
-Quiet(hs) == \A n \in hs : LET d == Decide27(n, hs, {}, {}) IN ~Replicates(d) /\ d.del = "none"
-NoTasks(hs) == \A n \in hs : ~Replicates(Decide27(n, hs, {}, {}))
-a\* a check "replicates" when it hands the replicator a task with at least one candidate node. (With overlapping
-\* rules the code as found keeps calling the replicator with an EMPTY candidate list: a holder remembered from
-\* an earlier rule does not lower the shortage of a later rule - a phantom shortage that copies nothing.)
-Replicates(d) == \E k \in 1..Len(d.tasks) : Len(d.tasks[k].nodes) > 0
-Quiet(hs) == \A n \in hs : LET d == Decide27(n, hs, {}, {}) IN ~Replicates(d) /\ d.del = "none"
-NoTasks(hs) == \A n \in hs : ~Replicates(Decide27(n, hs, {}, {}))
-r\* a check "replicates" when it hands the replicator a task with at least one candidate node. (With overlapping
-\* rules the code as found keeps calling the replicator with an EMPTY candidate list: a holder remembered from
-\* an earlier rule does not lower the shortage of a later rule - a phantom shortage that copies nothing.)
-Replicates(d) == \E k \in 1..Len(d.tasks) : Len(d.tasks[k].nodes) > 0
-Quiet(hs) == \A n \in hs : LET d == Decide27(n, hs, {}, {}) IN ~Replicates(d) /\ d.del = "none"
-NoTasks(hs) == \A n \in hs : ~Replicates(Decide27(n, hs, {}, {}))
-d\* a check "replicates" when it hands the replicator a task with at least one candidate node. (With overlapping
-\* rules the code as found keeps calling the replicator with an EMPTY candidate list: a holder remembered from
-\* an earlier rule does not lower the shortage of a later rule - a phantom shortage that copies nothing.)
-Replicates(d) == \E k \in 1..Len(d.tasks) : Len(d.tasks[k].nodes) > 0
-Quiet(hs) == \A n \in hs : LET d == Decide27(n, hs, {}, {}) IN ~Replicates(d) /\ d.del = "none"
-NoTasks(hs) == \A n \in hs : ~Replicates(Decide27(n, hs, {}, {}))
-s\* a check "replicates" when it hands the replicator a task with at least one candidate node. (With overlapping
-\* rules the code as found keeps calling the replicator with an EMPTY candidate list: a holder remembered from
-\* an earlier rule does not lower the shortage of a later rule - a phantom shortage that copies nothing.)
-Replicates(d) == \E k \in 1..Len(d.tasks) : Len(d.tasks[k].nodes) > 0
-Quiet(hs) == \A n \in hs : LET d == Decide27(n, hs, {}, {}) IN ~Replicates(d) /\ d.del = "none"
-NoTasks(hs) == \A n \in hs : ~Replicates(Decide27(n, hs, {}, {}))
- \* a check "replicates" when it hands the replicator a task with at least one candidate node. (With overlapping
-\* rules the code as found keeps calling the replicator with an EMPTY candidate list: a holder remembered from
-\* an earlier rule does not lower the shortage of a later rule - a phantom shortage that copies nothing.)
-Replicates(d) == \E k \in 1..Len(d.tasks) : Len(d.tasks[k].nodes) > 0
-Quiet(hs) == \A n \in hs : LET d == Decide27(n, hs, {}, {}) IN ~Replicates(d) /\ d.del = "none"
-NoTasks(hs) == \A n \in hs : ~Replicates(Decide27(n, hs, {}, {}))
-|\* a check "replicates" when it hands the replicator a task with at least one candidate node. (With overlapping
-\* rules the code as found keeps calling the replicator with an EMPTY candidate list: a holder remembered from
-\* an earlier rule does not lower the shortage of a later rule - a phantom shortage that copies nothing.)
-Replicates(d) == \E k \in 1..Len(d.tasks) : Len(d.tasks[k].nodes) > 0
-Quiet(hs) == \A n \in hs : LET d == Decide27(n, hs, {}, {}) IN ~Replicates(d) /\ d.del = "none"
-NoTasks(hs) == \A n \in hs : ~Replicates(Decide27(n, hs, {}, {}))
--\* a check "replicates" when it hands the replicator a task with at least one candidate node. (With overlapping
-\* rules the code as found keeps calling the replicator with an EMPTY candidate list: a holder remembered from
-\* an earlier rule does not lower the shortage of a later rule - a phantom shortage that copies nothing.)
-Replicates(d) == \E k \in 1..Len(d.tasks) : Len(d.tasks[k].nodes) > 0
-Quiet(hs) == \A n \in hs : LET d == Decide27(n, hs, {}, {}) IN ~Replicates(d) /\ d.del = "none"
-NoTasks(hs) == \A n \in hs : ~Replicates(Decide27(n, hs, {}, {}))
->\* a check "replicates" when it hands the replicator a task with at least one candidate node. (With overlapping
-\* rules the code as found keeps calling the replicator with an EMPTY candidate list: a holder remembered from
-\* an earlier rule does not lower the shortage of a later rule - a phantom shortage that copies nothing.)
-Replicates(d) == \E k \in 1..Len(d.tasks) : Len(d.tasks[k].nodes) > 0
-Quiet(hs) == \A n \in hs : LET d == Decide27(n, hs, {}, {}) IN ~Replicates(d) /\ d.del = "none"
-NoTasks(hs) == \A n \in hs : ~Replicates(Decide27(n, hs, {}, {}))
- \* a check "replicates" when it hands the replicator a task with at least one candidate node. (With overlapping
-\* rules the code as found keeps calling the replicator with an EMPTY candidate list: a holder remembered from
-\* an earlier rule does not lower the shortage of a later rule - a phantom shortage that copies nothing.)
-Replicates(d) == \E k \in 1..Len(d.tasks) : Len(d.tasks[k].nodes) > 0
-Quiet(hs) == \A n \in hs : LET d == Decide27(n, hs, {}, {}) IN ~Replicates(d) /\ d.del = "none"
-NoTasks(hs) == \A n \in hs : ~Replicates(Decide27(n, hs, {}, {}))
-1\* a check "replicates" when it hands the replicator a task with at least one candidate node. (With overlapping
-\* rules the code as found keeps calling the replicator with an EMPTY candidate list: a holder remembered from
-\* an earlier rule does not lower the shortage of a later rule - a phantom shortage that copies nothing.)
-Replicates(d) == \E k \in 1..Len(d.tasks) : Len(d.tasks[k].nodes) > 0
-Quiet(hs) == \A n \in hs : LET d == Decide27(n, hs, {}, {}) IN ~Replicates(d) /\ d.del = "none"
-NoTasks(hs) == \A n \in hs : ~Replicates(Decide27(n, hs, {}, {}))
-,\* a check "replicates" when it hands the replicator a task with at least one candidate node. (With overlapping
-\* rules the code as found keeps calling the replicator with an EMPTY candidate list: a holder remembered from
-\* an earlier rule does not lower the shortage of a later rule - a phantom shortage that copies nothing.)
-Replicates(d) == \E k \in 1..Len(d.tasks) : Len(d.tasks[k].nodes) > 0
-Quiet(hs) == \A n \in hs : LET d == Decide27(n, hs, {}, {}) IN ~Replicates(d) /\ d.del = "none"
-NoTasks(hs) == \A n \in hs : ~Replicates(Decide27(n, hs, {}, {}))
-
-\* a check "replicates" when it hands the replicator a task with at least one candidate node. (With overlapping
-\* rules the code as found keeps calling the replicator with an EMPTY candidate list: a holder remembered from
-\* an earlier rule does not lower the shortage of a later rule - a phantom shortage that copies nothing.)
-Replicates(d) == \E k \in 1..Len(d.tasks) : Len(d.tasks[k].nodes) > 0
-Quiet(hs) == \A n \in hs : LET d == Decide27(n, hs, {}, {}) IN ~Replicates(d) /\ d.del = "none"
-NoTasks(hs) == \A n \in hs : ~Replicates(Decide27(n, hs, {}, {}))
- \* a check "replicates" when it hands the replicator a task with at least one candidate node. (With overlapping
-\* rules the code as found keeps calling the replicator with an EMPTY candidate list: a holder remembered from
-\* an earlier rule does not lower the shortage of a later rule - a phantom shortage that copies nothing.)
-Replicates(d) == \E k \in 1..Len(d.tasks) : Len(d.tasks[k].nodes) > 0
-Quiet(hs) == \A n \in hs : LET d == Decide27(n, hs, {}, {}) IN ~Replicates(d) /\ d.del = "none"
-NoTasks(hs) == \A n \in hs : ~Replicates(Decide27(n, hs, {}, {}))
- \* a check "replicates" when it hands the replicator a task with at least one candidate node. (With overlapping
-\* rules the code as found keeps calling the replicator with an EMPTY candidate list: a holder remembered from
-\* an earlier rule does not lower the shortage of a later rule - a phantom shortage that copies nothing.)
-Replicates(d) == \E k \in 1..Len(d.tasks) : Len(d.tasks[k].nodes) > 0
-Quiet(hs) == \A n \in hs : LET d == Decide27(n, hs, {}, {}) IN ~Replicates(d) /\ d.del = "none"
-NoTasks(hs) == \A n \in hs : ~Replicates(Decide27(n, hs, {}, {}))
- \* a check "replicates" when it hands the replicator a task with at least one candidate node. (With overlapping
-\* rules the code as found keeps calling the replicator with an EMPTY candidate list: a holder remembered from
-\* an earlier rule does not lower the shortage of a later rule - a phantom shortage that copies nothing.)
-Replicates(d) == \E k \in 1..Len(d.tasks) : Len(d.tasks[k].nodes) > 0
-Quiet(hs) == \A n \in hs : LET d == Decide27(n, hs, {}, {}) IN ~Replicates(d) /\ d.del = "none"
-NoTasks(hs) == \A n \in hs : ~Replicates(Decide27(n, hs, {}, {}))
-n\* a check "replicates" when it hands the replicator a task with at least one candidate node. (With overlapping
-\* rules the code as found keeps calling the replicator with an EMPTY candidate list: a holder remembered from
-\* an earlier rule does not lower the shortage of a later rule - a phantom shortage that copies nothing.)
-Replicates(d) == \E k \in 1..Len(d.tasks) : Len(d.tasks[k].nodes) > 0
-Quiet(hs) == \A n \in hs : LET d == Decide27(n, hs, {}, {}) IN ~Replicates(d) /\ d.del = "none"
-NoTasks(hs) == \A n \in hs : ~Replicates(Decide27(n, hs, {}, {}))
-m\* a check "replicates" when it hands the replicator a task with at least one candidate node. (With overlapping
-\* rules the code as found keeps calling the replicator with an EMPTY candidate list: a holder remembered from
-\* an earlier rule does not lower the shortage of a later rule - a phantom shortage that copies nothing.)
-Replicates(d) == \E k \in 1..Len(d.tasks) : Len(d.tasks[k].nodes) > 0
-Quiet(hs) == \A n \in hs : LET d == Decide27(n, hs, {}, {}) IN ~Replicates(d) /\ d.del = "none"
-NoTasks(hs) == \A n \in hs : ~Replicates(Decide27(n, hs, {}, {}))
- \* a check "replicates" when it hands the replicator a task with at least one candidate node. (With overlapping
-\* rules the code as found keeps calling the replicator with an EMPTY candidate list: a holder remembered from
-\* an earlier rule does not lower the shortage of a later rule - a phantom shortage that copies nothing.)
-Replicates(d) == \E k \in 1..Len(d.tasks) : Len(d.tasks[k].nodes) > 0
-Quiet(hs) == \A n \in hs : LET d == Decide27(n, hs, {}, {}) IN ~Replicates(d) /\ d.del = "none"
-NoTasks(hs) == \A n \in hs : ~Replicates(Decide27(n, hs, {}, {}))
-|\* a check "replicates" when it hands the replicator a task with at least one candidate node. (With overlapping
-\* rules the code as found keeps calling the replicator with an EMPTY candidate list: a holder remembered from
-\* an earlier rule does not lower the shortage of a later rule - a phantom shortage that copies nothing.)
-Replicates(d) == \E k \in 1..Len(d.tasks) : Len(d.tasks[k].nodes) > 0
-Quiet(hs) == \A n \in hs : LET d == Decide27(n, hs, {}, {}) IN ~Replicates(d) /\ d.del = "none"
-NoTasks(hs) == \A n \in hs : ~Replicates(Decide27(n, hs, {}, {}))
--\* a check "replicates" when it hands the replicator a task with at least one candidate node. (With overlapping
-\* rules the code as found keeps calling the replicator with an EMPTY candidate list: a holder remembered from
-\* an earlier rule does not lower the shortage of a later rule - a phantom shortage that copies nothing.)
-Replicates(d) == \E k \in 1..Len(d.tasks) : Len(d.tasks[k].nodes) > 0
-Quiet(hs) == \A n \in hs : LET d == Decide27(n, hs, {}, {}) IN ~Replicates(d) /\ d.del = "none"
-NoTasks(hs) == \A n \in hs : ~Replicates(Decide27(n, hs, {}, {}))
->\* a check "replicates" when it hands the replicator a task with at least one candidate node. (With overlapping
-\* rules the code as found keeps calling the replicator with an EMPTY candidate list: a holder remembered from
-\* an earlier rule does not lower the shortage of a later rule - a phantom shortage that copies nothing.)
-Replicates(d) == \E k \in 1..Len(d.tasks) : Len(d.tasks[k].nodes) > 0
-Quiet(hs) == \A n \in hs : LET d == Decide27(n, hs, {}, {}) IN ~Replicates(d) /\ d.del = "none"
-NoTasks(hs) == \A n \in hs : ~Replicates(Decide27(n, hs, {}, {}))
- \* a check "replicates" when it hands the replicator a task with at least one candidate node. (With overlapping
-\* rules the code as found keeps calling the replicator with an EMPTY candidate list: a holder remembered from
-\* an earlier rule does not lower the shortage of a later rule - a phantom shortage that copies nothing.)
-Replicates(d) == \E k \in 1..Len(d.tasks) : Len(d.tasks[k].nodes) > 0
-Quiet(hs) == \A n \in hs : LET d == Decide27(n, hs, {}, {}) IN ~Replicates(d) /\ d.del = "none"
-NoTasks(hs) == \A n \in hs : ~Replicates(Decide27(n, hs, {}, {}))
-[\* a check "replicates" when it hands the replicator a task with at least one candidate node. (With overlapping
-\* rules the code as found keeps calling the replicator with an EMPTY candidate list: a holder remembered from
-\* an earlier rule does not lower the shortage of a later rule - a phantom shortage that copies nothing.)
-Replicates(d) == \E k \in 1..Len(d.tasks) : Len(d.tasks[k].nodes) > 0
-Quiet(hs) == \A n \in hs : LET d == Decide27(n, hs, {}, {}) IN ~Replicates(d) /\ d.del = "none"
-NoTasks(hs) == \A n \in hs : ~Replicates(Decide27(n, hs, {}, {}))
-x\* a check "replicates" when it hands the replicator a task with at least one candidate node. (With overlapping
-\* rules the code as found keeps calling the replicator with an EMPTY candidate list: a holder remembered from
-\* an earlier rule does not lower the shortage of a later rule - a phantom shortage that copies nothing.)
-Replicates(d) == \E k \in 1..Len(d.tasks) : Len(d.tasks[k].nodes) > 0
-Quiet(hs) == \A n \in hs : LET d == Decide27(n, hs, {}, {}) IN ~Replicates(d) /\ d.del = "none"
-NoTasks(hs) == \A n \in hs : ~Replicates(Decide27(n, hs, {}, {}))
- \* a check "replicates" when it hands the replicator a task with at least one candidate node. (With overlapping
-\* rules the code as found keeps calling the replicator with an EMPTY candidate list: a holder remembered from
-\* an earlier rule does not lower the shortage of a later rule - a phantom shortage that copies nothing.)
-Replicates(d) == \E k \in 1..Len(d.tasks) : Len(d.tasks[k].nodes) > 0
-Quiet(hs) == \A n \in hs : LET d == Decide27(n, hs, {}, {}) IN ~Replicates(d) /\ d.del = "none"
-NoTasks(hs) == \A n \in hs : ~Replicates(Decide27(n, hs, {}, {}))
-\\* a check "replicates" when it hands the replicator a task with at least one candidate node. (With overlapping
-\* rules the code as found keeps calling the replicator with an EMPTY candidate list: a holder remembered from
-\* an earlier rule does not lower the shortage of a later rule - a phantom shortage that copies nothing.)
-Replicates(d) == \E k \in 1..Len(d.tasks) : Len(d.tasks[k].nodes) > 0
-Quiet(hs) == \A n \in hs : LET d == Decide27(n, hs, {}, {}) IN ~Replicates(d) /\ d.del = "none"
-NoTasks(hs) == \A n \in hs : ~Replicates(Decide27(n, hs, {}, {}))
-i\* a check "replicates" when it hands the replicator a task with at least one candidate node. (With overlapping
-\* rules the code as found keeps calling the replicator with an EMPTY candidate list: a holder remembered from
-\* an earlier rule does not lower the shortage of a later rule - a phantom shortage that copies nothing.)
-Replicates(d) == \E k \in 1..Len(d.tasks) : Len(d.tasks[k].nodes) > 0
-Quiet(hs) == \A n \in hs : LET d == Decide27(n, hs, {}, {}) IN ~Replicates(d) /\ d.del = "none"
-NoTasks(hs) == \A n \in hs : ~Replicates(Decide27(n, hs, {}, {}))
-n\* a check "replicates" when it hands the replicator a task with at least one candidate node. (With overlapping
-\* rules the code as found keeps calling the replicator with an EMPTY candidate list: a holder remembered from
-\* an earlier rule does not lower the shortage of a later rule - a phantom shortage that copies nothing.)
-Replicates(d) == \E k \in 1..Len(d.tasks) : Len(d.tasks[k].nodes) > 0
-Quiet(hs) == \A n \in hs : LET d == Decide27(n, hs, {}, {}) IN ~Replicates(d) /\ d.del = "none"
-NoTasks(hs) == \A n \in hs : ~Replicates(Decide27(n, hs, {}, {}))
- \* a check "replicates" when it hands the replicator a task with at least one candidate node. (With overlapping
-\* rules the code as found keeps calling the replicator with an EMPTY candidate list: a holder remembered from
-\* an earlier rule does not lower the shortage of a later rule - a phantom shortage that copies nothing.)
-Replicates(d) == \E k \in 1..Len(d.tasks) : Len(d.tasks[k].nodes) > 0
-Quiet(hs) == \A n \in hs : LET d == Decide27(n, hs, {}, {}) IN ~Replicates(d) /\ d.del = "none"
-NoTasks(hs) == \A n \in hs : ~Replicates(Decide27(n, hs, {}, {}))
-N\* a check "replicates" when it hands the replicator a task with at least one candidate node. (With overlapping
-\* rules the code as found keeps calling the replicator with an EMPTY candidate list: a holder remembered from
-\* an earlier rule does not lower the shortage of a later rule - a phantom shortage that copies nothing.)
-Replicates(d) == \E k \in 1..Len(d.tasks) : Len(d.tasks[k].nodes) > 0
-Quiet(hs) == \A n \in hs : LET d == Decide27(n, hs, {}, {}) IN ~Replicates(d) /\ d.del = "none"
-NoTasks(hs) == \A n \in hs : ~Replicates(Decide27(n, hs, {}, {}))
-o\* a check "replicates" when it hands the replicator a task with at least one candidate node. (With overlapping
-\* rules the code as found keeps calling the replicator with an EMPTY candidate list: a holder remembered from
-\* an earlier rule does not lower the shortage of a later rule - a phantom shortage that copies nothing.)
-Replicates(d) == \E k \in 1..Len(d.tasks) : Len(d.tasks[k].nodes) > 0
-Quiet(hs) == \A n \in hs : LET d == Decide27(n, hs, {}, {}) IN ~Replicates(d) /\ d.del = "none"
-NoTasks(hs) == \A n \in hs : ~Replicates(Decide27(n, hs, {}, {}))
-d\* a check "replicates" when it hands the replicator a task with at least one candidate node. (With overlapping
-\* rules the code as found keeps calling the replicator with an EMPTY candidate list: a holder remembered from
-\* an earlier rule does not lower the shortage of a later rule - a phantom shortage that copies nothing.)
-Replicates(d) == \E k \in 1..Len(d.tasks) : Len(d.tasks[k].nodes) > 0
-Quiet(hs) == \A n \in hs : LET d == Decide27(n, hs, {}, {}) IN ~Replicates(d) /\ d.del = "none"
-NoTasks(hs) == \A n \in hs : ~Replicates(Decide27(n, hs, {}, {}))
-e\* a check "replicates" when it hands the replicator a task with at least one candidate node. (With overlapping
-\* rules the code as found keeps calling the replicator with an EMPTY candidate list: a holder remembered from
-\* an earlier rule does not lower the shortage of a later rule - a phantom shortage that copies nothing.)
-Replicates(d) == \E k \in 1..Len(d.tasks) : Len(d.tasks[k].nodes) > 0
-Quiet(hs) == \A n \in hs : LET d == Decide27(n, hs, {}, {}) IN ~Replicates(d) /\ d.del = "none"
-NoTasks(hs) == \A n \in hs : ~Replicates(Decide27(n, hs, {}, {}))
-s\* a check "replicates" when it hands the replicator a task with at least one candidate node. (With overlapping
-\* rules the code as found keeps calling the replicator with an EMPTY candidate list: a holder remembered from
-\* an earlier rule does not lower the shortage of a later rule - a phantom shortage that copies nothing.)
-Replicates(d) == \E k \in 1..Len(d.tasks) : Len(d.tasks[k].nodes) > 0
-Quiet(hs) == \A n \in hs : LET d == Decide27(n, hs, {}, {}) IN ~Replicates(d) /\ d.del = "none"
-NoTasks(hs) == \A n \in hs : ~Replicates(Decide27(n, hs, {}, {}))
- \* a check "replicates" when it hands the replicator a task with at least one candidate node. (With overlapping
-\* rules the code as found keeps calling the replicator with an EMPTY candidate list: a holder remembered from
-\* an earlier rule does not lower the shortage of a later rule - a phantom shortage that copies nothing.)
-Replicates(d) == \E k \in 1..Len(d.tasks) : Len(d.tasks[k].nodes) > 0
-Quiet(hs) == \A n \in hs : LET d == Decide27(n, hs, {}, {}) IN ~Replicates(d) /\ d.del = "none"
-NoTasks(hs) == \A n \in hs : ~Replicates(Decide27(n, hs, {}, {}))
-|\* a check "replicates" when it hands the replicator a task with at least one candidate node. (With overlapping
-\* rules the code as found keeps calling the replicator with an EMPTY candidate list: a holder remembered from
-\* an earlier rule does not lower the shortage of a later rule - a phantom shortage that copies nothing.)
-Replicates(d) == \E k \in 1..Len(d.tasks) : Len(d.tasks[k].nodes) > 0
-Quiet(hs) == \A n \in hs : LET d == Decide27(n, hs, {}, {}) IN ~Replicates(d) /\ d.del = "none"
-NoTasks(hs) == \A n \in hs : ~Replicates(Decide27(n, hs, {}, {}))
--\* a check "replicates" when it hands the replicator a task with at least one candidate node. (With overlapping
-\* rules the code as found keeps calling the replicator with an EMPTY candidate list: a holder remembered from
-\* an earlier rule does not lower the shortage of a later rule - a phantom shortage that copies nothing.)
-Replicates(d) == \E k \in 1..Len(d.tasks) : Len(d.tasks[k].nodes) > 0
-Quiet(hs) == \A n \in hs : LET d == Decide27(n, hs, {}, {}) IN ~Replicates(d) /\ d.del = "none"
-NoTasks(hs) == \A n \in hs : ~Replicates(Decide27(n, hs, {}, {}))
->\* a check "replicates" when it hands the replicator a task with at least one candidate node. (With overlapping
-\* rules the code as found keeps calling the replicator with an EMPTY candidate list: a holder remembered from
-\* an earlier rule does not lower the shortage of a later rule - a phantom shortage that copies nothing.)
-Replicates(d) == \E k \in 1..Len(d.tasks) : Len(d.tasks[k].nodes) > 0
-Quiet(hs) == \A n \in hs : LET d == Decide27(n, hs, {}, {}) IN ~Replicates(d) /\ d.del = "none"
-NoTasks(hs) == \A n \in hs : ~Replicates(Decide27(n, hs, {}, {}))
- \* a check "replicates" when it hands the replicator a task with at least one candidate node. (With overlapping
-\* rules the code as found keeps calling the replicator with an EMPTY candidate list: a holder remembered from
-\* an earlier rule does not lower the shortage of a later rule - a phantom shortage that copies nothing.)
-Replicates(d) == \E k \in 1..Len(d.tasks) : Len(d.tasks[k].nodes) > 0
-Quiet(hs) == \A n \in hs : LET d == Decide27(n, hs, {}, {}) IN ~Replicates(d) /\ d.del = "none"
-NoTasks(hs) == \A n \in hs : ~Replicates(Decide27(n, hs, {}, {}))
-"\* a check "replicates" when it hands the replicator a task with at least one candidate node. (With overlapping
-\* rules the code as found keeps calling the replicator with an EMPTY candidate list: a holder remembered from
-\* an earlier rule does not lower the shortage of a later rule - a phantom shortage that copies nothing.)
-Replicates(d) == \E k \in 1..Len(d.tasks) : Len(d.tasks[k].nodes) > 0
-Quiet(hs) == \A n \in hs : LET d == Decide27(n, hs, {}, {}) IN ~Replicates(d) /\ d.del = "none"
-NoTasks(hs) == \A n \in hs : ~Replicates(Decide27(n, hs, {}, {}))
-n\* a check "replicates" when it hands the replicator a task with at least one candidate node. (With overlapping
-\* rules the code as found keeps calling the replicator with an EMPTY candidate list: a holder remembered from
-\* an earlier rule does not lower the shortage of a later rule - a phantom shortage that copies nothing.)
-Replicates(d) == \E k \in 1..Len(d.tasks) : Len(d.tasks[k].nodes) > 0
-Quiet(hs) == \A n \in hs : LET d == Decide27(n, hs, {}, {}) IN ~Replicates(d) /\ d.del = "none"
-NoTasks(hs) == \A n \in hs : ~Replicates(Decide27(n, hs, {}, {}))
-"\* a check "replicates" when it hands the replicator a task with at least one candidate node. (With overlapping
-\* rules the code as found keeps calling the replicator with an EMPTY candidate list: a holder remembered from
-\* an earlier rule does not lower the shortage of a later rule - a phantom shortage that copies nothing.)
-Replicates(d) == \E k \in 1..Len(d.tasks) : Len(d.tasks[k].nodes) > 0
-Quiet(hs) == \A n \in hs : LET d == Decide27(n, hs, {}, {}) IN ~Replicates(d) /\ d.del = "none"
-NoTasks(hs) == \A n \in hs : ~Replicates(Decide27(n, hs, {}, {}))
-]\* a check "replicates" when it hands the replicator a task with at least one candidate node. (With overlapping
-\* rules the code as found keeps calling the replicator with an EMPTY candidate list: a holder remembered from
-\* an earlier rule does not lower the shortage of a later rule - a phantom shortage that copies nothing.)
-Replicates(d) == \E k \in 1..Len(d.tasks) : Len(d.tasks[k].nodes) > 0
-Quiet(hs) == \A n \in hs : LET d == Decide27(n, hs, {}, {}) IN ~Replicates(d) /\ d.del = "none"
-NoTasks(hs) == \A n \in hs : ~Replicates(Decide27(n, hs, {}, {}))
-,\* a check "replicates" when it hands the replicator a task with at least one candidate node. (With overlapping
-\* rules the code as found keeps calling the replicator with an EMPTY candidate list: a holder remembered from
-\* an earlier rule does not lower the shortage of a later rule - a phantom shortage that copies nothing.)
-Replicates(d) == \E k \in 1..Len(d.tasks) : Len(d.tasks[k].nodes) > 0
-Quiet(hs) == \A n \in hs : LET d == Decide27(n, hs, {}, {}) IN ~Replicates(d) /\ d.del = "none"
-NoTasks(hs) == \A n \in hs : ~Replicates(Decide27(n, hs, {}, {}))
-
-\* a check "replicates" when it hands the replicator a task with at least one candidate node. (With overlapping
-\* rules the code as found keeps calling the replicator with an EMPTY candidate list: a holder remembered from
-\* an earlier rule does not lower the shortage of a later rule - a phantom shortage that copies nothing.)
-Replicates(d) == \E k \in 1..Len(d.tasks) : Len(d.tasks[k].nodes) > 0
-Quiet(hs) == \A n \in hs : LET d == Decide27(n, hs, {}, {}) IN ~Replicates(d) /\ d.del = "none"
-NoTasks(hs) == \A n \in hs : ~Replicates(Decide27(n, hs, {}, {}))
- \* a check "replicates" when it hands the replicator a task with at least one candidate node. (With overlapping
-\* rules the code as found keeps calling the replicator with an EMPTY candidate list: a holder remembered from
-\* an earlier rule does not lower the shortage of a later rule - a phantom shortage that copies nothing.)
-Replicates(d) == \E k \in 1..Len(d.tasks) : Len(d.tasks[k].nodes) > 0
-Quiet(hs) == \A n \in hs : LET d == Decide27(n, hs, {}, {}) IN ~Replicates(d) /\ d.del = "none"
-NoTasks(hs) == \A n \in hs : ~Replicates(Decide27(n, hs, {}, {}))
- \* a check "replicates" when it hands the replicator a task with at least one candidate node. (With overlapping
-\* rules the code as found keeps calling the replicator with an EMPTY candidate list: a holder remembered from
-\* an earlier rule does not lower the shortage of a later rule - a phantom shortage that copies nothing.)
-Replicates(d) == \E k \in 1..Len(d.tasks) : Len(d.tasks[k].nodes) > 0
-Quiet(hs) == \A n \in hs : LET d == Decide27(n, hs, {}, {}) IN ~Replicates(d) /\ d.del = "none"
-NoTasks(hs) == \A n \in hs : ~Replicates(Decide27(n, hs, {}, {}))
- \* a check "replicates" when it hands the replicator a task with at least one candidate node. (With overlapping
-\* rules the code as found keeps calling the replicator with an EMPTY candidate list: a holder remembered from
-\* an earlier rule does not lower the shortage of a later rule - a phantom shortage that copies nothing.)
-Replicates(d) == \E k \in 1..Len(d.tasks) : Len(d.tasks[k].nodes) > 0
-Quiet(hs) == \A n \in hs : LET d == Decide27(n, hs, {}, {}) IN ~Replicates(d) /\ d.del = "none"
-NoTasks(hs) == \A n \in hs : ~Replicates(Decide27(n, hs, {}, {}))
-a\* a check "replicates" when it hands the replicator a task with at least one candidate node. (With overlapping
-\* rules the code as found keeps calling the replicator with an EMPTY candidate list: a holder remembered from
-\* an earlier rule does not lower the shortage of a later rule - a phantom shortage that copies nothing.)
-Replicates(d) == \E k \in 1..Len(d.tasks) : Len(d.tasks[k].nodes) > 0
-Quiet(hs) == \A n \in hs : LET d == Decide27(n, hs, {}, {}) IN ~Replicates(d) /\ d.del = "none"
-NoTasks(hs) == \A n \in hs : ~Replicates(Decide27(n, hs, {}, {}))
-n\* a check "replicates" when it hands the replicator a task with at least one candidate node. (With overlapping
-\* rules the code as found keeps calling the replicator with an EMPTY candidate list: a holder remembered from
-\* an earlier rule does not lower the shortage of a later rule - a phantom shortage that copies nothing.)
-Replicates(d) == \E k \in 1..Len(d.tasks) : Len(d.tasks[k].nodes) > 0
-Quiet(hs) == \A n \in hs : LET d == Decide27(n, hs, {}, {}) IN ~Replicates(d) /\ d.del = "none"
-NoTasks(hs) == \A n \in hs : ~Replicates(Decide27(n, hs, {}, {}))
-s\* a check "replicates" when it hands the replicator a task with at least one candidate node. (With overlapping
-\* rules the code as found keeps calling the replicator with an EMPTY candidate list: a holder remembered from
-\* an earlier rule does not lower the shortage of a later rule - a phantom shortage that copies nothing.)
-Replicates(d) == \E k \in 1..Len(d.tasks) : Len(d.tasks[k].nodes) > 0
-Quiet(hs) == \A n \in hs : LET d == Decide27(n, hs, {}, {}) IN ~Replicates(d) /\ d.del = "none"
-NoTasks(hs) == \A n \in hs : ~Replicates(Decide27(n, hs, {}, {}))
- \* a check "replicates" when it hands the replicator a task with at least one candidate node. (With overlapping
-\* rules the code as found keeps calling the replicator with an EMPTY candidate list: a holder remembered from
-\* an earlier rule does not lower the shortage of a later rule - a phantom shortage that copies nothing.)
-Replicates(d) == \E k \in 1..Len(d.tasks) : Len(d.tasks[k].nodes) > 0
-Quiet(hs) == \A n \in hs : LET d == Decide27(n, hs, {}, {}) IN ~Replicates(d) /\ d.del = "none"
-NoTasks(hs) == \A n \in hs : ~Replicates(Decide27(n, hs, {}, {}))
-|\* a check "replicates" when it hands the replicator a task with at least one candidate node. (With overlapping
-\* rules the code as found keeps calling the replicator with an EMPTY candidate list: a holder remembered from
-\* an earlier rule does not lower the shortage of a later rule - a phantom shortage that copies nothing.)
-Replicates(d) == \E k \in 1..Len(d.tasks) : Len(d.tasks[k].nodes) > 0
-Quiet(hs) == \A n \in hs : LET d == Decide27(n, hs, {}, {}) IN ~Replicates(d) /\ d.del = "none"
-NoTasks(hs) == \A n \in hs : ~Replicates(Decide27(n, hs, {}, {}))
--\* a check "replicates" when it hands the replicator a task with at least one candidate node. (With overlapping
-\* rules the code as found keeps calling the replicator with an EMPTY candidate list: a holder remembered from
-\* an earlier rule does not lower the shortage of a later rule - a phantom shortage that copies nothing.)
-Replicates(d) == \E k \in 1..Len(d.tasks) : Len(d.tasks[k].nodes) > 0
-Quiet(hs) == \A n \in hs : LET d == Decide27(n, hs, {}, {}) IN ~Replicates(d) /\ d.del = "none"
-NoTasks(hs) == \A n \in hs : ~Replicates(Decide27(n, hs, {}, {}))
->\* a check "replicates" when it hands the replicator a task with at least one candidate node. (With overlapping
-\* rules the code as found keeps calling the replicator with an EMPTY candidate list: a holder remembered from
-\* an earlier rule does not lower the shortage of a later rule - a phantom shortage that copies nothing.)
-Replicates(d) == \E k \in 1..Len(d.tasks) : Len(d.tasks[k].nodes) > 0
-Quiet(hs) == \A n \in hs : LET d == Decide27(n, hs, {}, {}) IN ~Replicates(d) /\ d.del = "none"
-NoTasks(hs) == \A n \in hs : ~Replicates(Decide27(n, hs, {}, {}))
- \* a check "replicates" when it hands the replicator a task with at least one candidate node. (With overlapping
-\* rules the code as found keeps calling the replicator with an EMPTY candidate list: a holder remembered from
-\* an earlier rule does not lower the shortage of a later rule - a phantom shortage that copies nothing.)
-Replicates(d) == \E k \in 1..Len(d.tasks) : Len(d.tasks[k].nodes) > 0
-Quiet(hs) == \A n \in hs : LET d == Decide27(n, hs, {}, {}) IN ~Replicates(d) /\ d.del = "none"
-NoTasks(hs) == \A n \in hs : ~Replicates(Decide27(n, hs, {}, {}))
-[\* a check "replicates" when it hands the replicator a task with at least one candidate node. (With overlapping
-\* rules the code as found keeps calling the replicator with an EMPTY candidate list: a holder remembered from
-\* an earlier rule does not lower the shortage of a later rule - a phantom shortage that copies nothing.)
-Replicates(d) == \E k \in 1..Len(d.tasks) : Len(d.tasks[k].nodes) > 0
-Quiet(hs) == \A n \in hs : LET d == Decide27(n, hs, {}, {}) IN ~Replicates(d) /\ d.del = "none"
-NoTasks(hs) == \A n \in hs : ~Replicates(Decide27(n, hs, {}, {}))
-x\* a check "replicates" when it hands the replicator a task with at least one candidate node. (With overlapping
-\* rules the code as found keeps calling the replicator with an EMPTY candidate list: a holder remembered from
-\* an earlier rule does not lower the shortage of a later rule - a phantom shortage that copies nothing.)
-Replicates(d) == \E k \in 1..Len(d.tasks) : Len(d.tasks[k].nodes) > 0
-Quiet(hs) == \A n \in hs : LET d == Decide27(n, hs, {}, {}) IN ~Replicates(d) /\ d.del = "none"
-NoTasks(hs) == \A n \in hs : ~Replicates(Decide27(n, hs, {}, {}))
- \* a check "replicates" when it hands the replicator a task with at least one candidate node. (With overlapping
-\* rules the code as found keeps calling the replicator with an EMPTY candidate list: a holder remembered from
-\* an earlier rule does not lower the shortage of a later rule - a phantom shortage that copies nothing.)
-Replicates(d) == \E k \in 1..Len(d.tasks) : Len(d.tasks[k].nodes) > 0
-Quiet(hs) == \A n \in hs : LET d == Decide27(n, hs, {}, {}) IN ~Replicates(d) /\ d.del = "none"
-NoTasks(hs) == \A n \in hs : ~Replicates(Decide27(n, hs, {}, {}))
-\\* a check "replicates" when it hands the replicator a task with at least one candidate node. (With overlapping
-\* rules the code as found keeps calling the replicator with an EMPTY candidate list: a holder remembered from
-\* an earlier rule does not lower the shortage of a later rule - a phantom shortage that copies nothing.)
-Replicates(d) == \E k \in 1..Len(d.tasks) : Len(d.tasks[k].nodes) > 0
-Quiet(hs) == \A n \in hs : LET d == Decide27(n, hs, {}, {}) IN ~Replicates(d) /\ d.del = "none"
-NoTasks(hs) == \A n \in hs : ~Replicates(Decide27(n, hs, {}, {}))
-i\* a check "replicates" when it hands the replicator a task with at least one candidate node. (With overlapping
-\* rules the code as found keeps calling the replicator with an EMPTY candidate list: a holder remembered from
-\* an earlier rule does not lower the shortage of a later rule - a phantom shortage that copies nothing.)
-Replicates(d) == \E k \in 1..Len(d.tasks) : Len(d.tasks[k].nodes) > 0
-Quiet(hs) == \A n \in hs : LET d == Decide27(n, hs, {}, {}) IN ~Replicates(d) /\ d.del = "none"
-NoTasks(hs) == \A n \in hs : ~Replicates(Decide27(n, hs, {}, {}))
-n\* a check "replicates" when it hands the replicator a task with at least one candidate node. (With overlapping
-\* rules the code as found keeps calling the replicator with an EMPTY candidate list: a holder remembered from
-\* an earlier rule does not lower the shortage of a later rule - a phantom shortage that copies nothing.)
-Replicates(d) == \E k \in 1..Len(d.tasks) : Len(d.tasks[k].nodes) > 0
-Quiet(hs) == \A n \in hs : LET d == Decide27(n, hs, {}, {}) IN ~Replicates(d) /\ d.del = "none"
-NoTasks(hs) == \A n \in hs : ~Replicates(Decide27(n, hs, {}, {}))
- \* a check "replicates" when it hands the replicator a task with at least one candidate node. (With overlapping
-\* rules the code as found keeps calling the replicator with an EMPTY candidate list: a holder remembered from
-\* an earlier rule does not lower the shortage of a later rule - a phantom shortage that copies nothing.)
-Replicates(d) == \E k \in 1..Len(d.tasks) : Len(d.tasks[k].nodes) > 0
-Quiet(hs) == \A n \in hs : LET d == Decide27(n, hs, {}, {}) IN ~Replicates(d) /\ d.del = "none"
-NoTasks(hs) == \A n \in hs : ~Replicates(Decide27(n, hs, {}, {}))
-N\* a check "replicates" when it hands the replicator a task with at least one candidate node. (With overlapping
-\* rules the code as found keeps calling the replicator with an EMPTY candidate list: a holder remembered from
-\* an earlier rule does not lower the shortage of a later rule - a phantom shortage that copies nothing.)
-Replicates(d) == \E k \in 1..Len(d.tasks) : Len(d.tasks[k].nodes) > 0
-Quiet(hs) == \A n \in hs : LET d == Decide27(n, hs, {}, {}) IN ~Replicates(d) /\ d.del = "none"
-NoTasks(hs) == \A n \in hs : ~Replicates(Decide27(n, hs, {}, {}))
-o\* a check "replicates" when it hands the replicator a task with at least one candidate node. (With overlapping
-\* rules the code as found keeps calling the replicator with an EMPTY candidate list: a holder remembered from
-\* an earlier rule does not lower the shortage of a later rule - a phantom shortage that copies nothing.)
-Replicates(d) == \E k \in 1..Len(d.tasks) : Len(d.tasks[k].nodes) > 0
-Quiet(hs) == \A n \in hs : LET d == Decide27(n, hs, {}, {}) IN ~Replicates(d) /\ d.del = "none"
-NoTasks(hs) == \A n \in hs : ~Replicates(Decide27(n, hs, {}, {}))
-d\* a check "replicates" when it hands the replicator a task with at least one candidate node. (With overlapping
-\* rules the code as found keeps calling the replicator with an EMPTY candidate list: a holder remembered from
-\* an earlier rule does not lower the shortage of a later rule - a phantom shortage that copies nothing.)
-Replicates(d) == \E k \in 1..Len(d.tasks) : Len(d.tasks[k].nodes) > 0
-Quiet(hs) == \A n \in hs : LET d == Decide27(n, hs, {}, {}) IN ~Replicates(d) /\ d.del = "none"
-NoTasks(hs) == \A n \in hs : ~Replicates(Decide27(n, hs, {}, {}))
-e\* a check "replicates" when it hands the replicator a task with at least one candidate node. (With overlapping
-\* rules the code as found keeps calling the replicator with an EMPTY candidate list: a holder remembered from
-\* an earlier rule does not lower the shortage of a later rule - a phantom shortage that copies nothing.)
-Replicates(d) == \E k \in 1..Len(d.tasks) : Len(d.tasks[k].nodes) > 0
-Quiet(hs) == \A n \in hs : LET d == Decide27(n, hs, {}, {}) IN ~Replicates(d) /\ d.del = "none"
-NoTasks(hs) == \A n \in hs : ~Replicates(Decide27(n, hs, {}, {}))
-s\* a check "replicates" when it hands the replicator a task with at least one candidate node. (With overlapping
-\* rules the code as found keeps calling the replicator with an EMPTY candidate list: a holder remembered from
-\* an earlier rule does not lower the shortage of a later rule - a phantom shortage that copies nothing.)
-Replicates(d) == \E k \in 1..Len(d.tasks) : Len(d.tasks[k].nodes) > 0
-Quiet(hs) == \A n \in hs : LET d == Decide27(n, hs, {}, {}) IN ~Replicates(d) /\ d.del = "none"
-NoTasks(hs) == \A n \in hs : ~Replicates(Decide27(n, hs, {}, {}))
- \* a check "replicates" when it hands the replicator a task with at least one candidate node. (With overlapping
-\* rules the code as found keeps calling the replicator with an EMPTY candidate list: a holder remembered from
-\* an earlier rule does not lower the shortage of a later rule - a phantom shortage that copies nothing.)
-Replicates(d) == \E k \in 1..Len(d.tasks) : Len(d.tasks[k].nodes) > 0
-Quiet(hs) == \A n \in hs : LET d == Decide27(n, hs, {}, {}) IN ~Replicates(d) /\ d.del = "none"
-NoTasks(hs) == \A n \in hs : ~Replicates(Decide27(n, hs, {}, {}))
-|\* a check "replicates" when it hands the replicator a task with at least one candidate node. (With overlapping
-\* rules the code as found keeps calling the replicator with an EMPTY candidate list: a holder remembered from
-\* an earlier rule does not lower the shortage of a later rule - a phantom shortage that copies nothing.)
-Replicates(d) == \E k \in 1..Len(d.tasks) : Len(d.tasks[k].nodes) > 0
-Quiet(hs) == \A n \in hs : LET d == Decide27(n, hs, {}, {}) IN ~Replicates(d) /\ d.del = "none"
-NoTasks(hs) == \A n \in hs : ~Replicates(Decide27(n, hs, {}, {}))
--\* a check "replicates" when it hands the replicator a task with at least one candidate node. (With overlapping
-\* rules the code as found keeps calling the replicator with an EMPTY candidate list: a holder remembered from
-\* an earlier rule does not lower the shortage of a later rule - a phantom shortage that copies nothing.)
-Replicates(d) == \E k \in 1..Len(d.tasks) : Len(d.tasks[k].nodes) > 0
-Quiet(hs) == \A n \in hs : LET d == Decide27(n, hs, {}, {}) IN ~Replicates(d) /\ d.del = "none"
-NoTasks(hs) == \A n \in hs : ~Replicates(Decide27(n, hs, {}, {}))
->\* a check "replicates" when it hands the replicator a task with at least one candidate node. (With overlapping
-\* rules the code as found keeps calling the replicator with an EMPTY candidate list: a holder remembered from
-\* an earlier rule does not lower the shortage of a later rule - a phantom shortage that copies nothing.)
-Replicates(d) == \E k \in 1..Len(d.tasks) : Len(d.tasks[k].nodes) > 0
-Quiet(hs) == \A n \in hs : LET d == Decide27(n, hs, {}, {}) IN ~Replicates(d) /\ d.del = "none"
-NoTasks(hs) == \A n \in hs : ~Replicates(Decide27(n, hs, {}, {}))
- \* a check "replicates" when it hands the replicator a task with at least one candidate node. (With overlapping
-\* rules the code as found keeps calling the replicator with an EMPTY candidate list: a holder remembered from
-\* an earlier rule does not lower the shortage of a later rule - a phantom shortage that copies nothing.)
-Replicates(d) == \E k \in 1..Len(d.tasks) : Len(d.tasks[k].nodes) > 0
-Quiet(hs) == \A n \in hs : LET d == Decide27(n, hs, {}, {}) IN ~Replicates(d) /\ d.del = "none"
-NoTasks(hs) == \A n \in hs : ~Replicates(Decide27(n, hs, {}, {}))
-I\* a check "replicates" when it hands the replicator a task with at least one candidate node. (With overlapping
-\* rules the code as found keeps calling the replicator with an EMPTY candidate list: a holder remembered from
-\* an earlier rule does not lower the shortage of a later rule - a phantom shortage that copies nothing.)
-Replicates(d) == \E k \in 1..Len(d.tasks) : Len(d.tasks[k].nodes) > 0
-Quiet(hs) == \A n \in hs : LET d == Decide27(n, hs, {}, {}) IN ~Replicates(d) /\ d.del = "none"
-NoTasks(hs) == \A n \in hs : ~Replicates(Decide27(n, hs, {}, {}))
-F\* a check "replicates" when it hands the replicator a task with at least one candidate node. (With overlapping
-\* rules the code as found keeps calling the replicator with an EMPTY candidate list: a holder remembered from
-\* an earlier rule does not lower the shortage of a later rule - a phantom shortage that copies nothing.)
-Replicates(d) == \E k \in 1..Len(d.tasks) : Len(d.tasks[k].nodes) > 0
-Quiet(hs) == \A n \in hs : LET d == Decide27(n, hs, {}, {}) IN ~Replicates(d) /\ d.del = "none"
-NoTasks(hs) == \A n \in hs : ~Replicates(Decide27(n, hs, {}, {}))
- \* a check "replicates" when it hands the replicator a task with at least one candidate node. (With overlapping
-\* rules the code as found keeps calling the replicator with an EMPTY candidate list: a holder remembered from
-\* an earlier rule does not lower the shortage of a later rule - a phantom shortage that copies nothing.)
-Replicates(d) == \E k \in 1..Len(d.tasks) : Len(d.tasks[k].nodes) > 0
-Quiet(hs) == \A n \in hs : LET d == Decide27(n, hs, {}, {}) IN ~Replicates(d) /\ d.del = "none"
-NoTasks(hs) == \A n \in hs : ~Replicates(Decide27(n, hs, {}, {}))
-S\* a check "replicates" when it hands the replicator a task with at least one candidate node. (With overlapping
-\* rules the code as found keeps calling the replicator with an EMPTY candidate list: a holder remembered from
-\* an earlier rule does not lower the shortage of a later rule - a phantom shortage that copies nothing.)
-Replicates(d) == \E k \in 1..Len(d.tasks) : Len(d.tasks[k].nodes) > 0
-Quiet(hs) == \A n \in hs : LET d == Decide27(n, hs, {}, {}) IN ~Replicates(d) /\ d.del = "none"
-NoTasks(hs) == \A n \in hs : ~Replicates(Decide27(n, hs, {}, {}))
-w\* a check "replicates" when it hands the replicator a task with at least one candidate node. (With overlapping
-\* rules the code as found keeps calling the replicator with an EMPTY candidate list: a holder remembered from
-\* an earlier rule does not lower the shortage of a later rule - a phantom shortage that copies nothing.)
-Replicates(d) == \E k \in 1..Len(d.tasks) : Len(d.tasks[k].nodes) > 0
-Quiet(hs) == \A n \in hs : LET d == Decide27(n, hs, {}, {}) IN ~Replicates(d) /\ d.del = "none"
-NoTasks(hs) == \A n \in hs : ~Replicates(Decide27(n, hs, {}, {}))
-a\* a check "replicates" when it hands the replicator a task with at least one candidate node. (With overlapping
-\* rules the code as found keeps calling the replicator with an EMPTY candidate list: a holder remembered from
-\* an earlier rule does not lower the shortage of a later rule - a phantom shortage that copies nothing.)
-Replicates(d) == \E k \in 1..Len(d.tasks) : Len(d.tasks[k].nodes) > 0
-Quiet(hs) == \A n \in hs : LET d == Decide27(n, hs, {}, {}) IN ~Replicates(d) /\ d.del = "none"
-NoTasks(hs) == \A n \in hs : ~Replicates(Decide27(n, hs, {}, {}))
-p\* a check "replicates" when it hands the replicator a task with at least one candidate node. (With overlapping
-\* rules the code as found keeps calling the replicator with an EMPTY candidate list: a holder remembered from
-\* an earlier rule does not lower the shortage of a later rule - a phantom shortage that copies nothing.)
-Replicates(d) == \E k \in 1..Len(d.tasks) : Len(d.tasks[k].nodes) > 0
-Quiet(hs) == \A n \in hs : LET d == Decide27(n, hs, {}, {}) IN ~Replicates(d) /\ d.del = "none"
-NoTasks(hs) == \A n \in hs : ~Replicates(Decide27(n, hs, {}, {}))
-(\* a check "replicates" when it hands the replicator a task with at least one candidate node. (With overlapping
-\* rules the code as found keeps calling the replicator with an EMPTY candidate list: a holder remembered from
-\* an earlier rule does not lower the shortage of a later rule - a phantom shortage that copies nothing.)
-Replicates(d) == \E k \in 1..Len(d.tasks) : Len(d.tasks[k].nodes) > 0
-Quiet(hs) == \A n \in hs : LET d == Decide27(n, hs, {}, {}) IN ~Replicates(d) /\ d.del = "none"
-NoTasks(hs) == \A n \in hs : ~Replicates(Decide27(n, hs, {}, {}))
-n\* a check "replicates" when it hands the replicator a task with at least one candidate node. (With overlapping
-\* rules the code as found keeps calling the replicator with an EMPTY candidate list: a holder remembered from
-\* an earlier rule does not lower the shortage of a later rule - a phantom shortage that copies nothing.)
-Replicates(d) == \E k \in 1..Len(d.tasks) : Len(d.tasks[k].nodes) > 0
-Quiet(hs) == \A n \in hs : LET d == Decide27(n, hs, {}, {}) IN ~Replicates(d) /\ d.del = "none"
-NoTasks(hs) == \A n \in hs : ~Replicates(Decide27(n, hs, {}, {}))
-,\* a check "replicates" when it hands the replicator a task with at least one candidate node. (With overlapping
-\* rules the code as found keeps calling the replicator with an EMPTY candidate list: a holder remembered from
-\* an earlier rule does not lower the shortage of a later rule - a phantom shortage that copies nothing.)
-Replicates(d) == \E k \in 1..Len(d.tasks) : Len(d.tasks[k].nodes) > 0
-Quiet(hs) == \A n \in hs : LET d == Decide27(n, hs, {}, {}) IN ~Replicates(d) /\ d.del = "none"
-NoTasks(hs) == \A n \in hs : ~Replicates(Decide27(n, hs, {}, {}))
- \* a check "replicates" when it hands the replicator a task with at least one candidate node. (With overlapping
-\* rules the code as found keeps calling the replicator with an EMPTY candidate list: a holder remembered from
-\* an earlier rule does not lower the shortage of a later rule - a phantom shortage that copies nothing.)
-Replicates(d) == \E k \in 1..Len(d.tasks) : Len(d.tasks[k].nodes) > 0
-Quiet(hs) == \A n \in hs : LET d == Decide27(n, hs, {}, {}) IN ~Replicates(d) /\ d.del = "none"
-NoTasks(hs) == \A n \in hs : ~Replicates(Decide27(n, hs, {}, {}))
-x\* a check "replicates" when it hands the replicator a task with at least one candidate node. (With overlapping
-\* rules the code as found keeps calling the replicator with an EMPTY candidate list: a holder remembered from
-\* an earlier rule does not lower the shortage of a later rule - a phantom shortage that copies nothing.)
-Replicates(d) == \E k \in 1..Len(d.tasks) : Len(d.tasks[k].nodes) > 0
-Quiet(hs) == \A n \in hs : LET d == Decide27(n, hs, {}, {}) IN ~Replicates(d) /\ d.del = "none"
-NoTasks(hs) == \A n \in hs : ~Replicates(Decide27(n, hs, {}, {}))
-)\* a check "replicates" when it hands the replicator a task with at least one candidate node. (With overlapping
-\* rules the code as found keeps calling the replicator with an EMPTY candidate list: a holder remembered from
-\* an earlier rule does not lower the shortage of a later rule - a phantom shortage that copies nothing.)
-Replicates(d) == \E k \in 1..Len(d.tasks) : Len(d.tasks[k].nodes) > 0
-Quiet(hs) == \A n \in hs : LET d == Decide27(n, hs, {}, {}) IN ~Replicates(d) /\ d.del = "none"
-NoTasks(hs) == \A n \in hs : ~Replicates(Decide27(n, hs, {}, {}))
- \* a check "replicates" when it hands the replicator a task with at least one candidate node. (With overlapping
-\* rules the code as found keeps calling the replicator with an EMPTY candidate list: a holder remembered from
-\* an earlier rule does not lower the shortage of a later rule - a phantom shortage that copies nothing.)
-Replicates(d) == \E k \in 1..Len(d.tasks) : Len(d.tasks[k].nodes) > 0
-Quiet(hs) == \A n \in hs : LET d == Decide27(n, hs, {}, {}) IN ~Replicates(d) /\ d.del = "none"
-NoTasks(hs) == \A n \in hs : ~Replicates(Decide27(n, hs, {}, {}))
-\\* a check "replicates" when it hands the replicator a task with at least one candidate node. (With overlapping
-\* rules the code as found keeps calling the replicator with an EMPTY candidate list: a holder remembered from
-\* an earlier rule does not lower the shortage of a later rule - a phantom shortage that copies nothing.)
-Replicates(d) == \E k \in 1..Len(d.tasks) : Len(d.tasks[k].nodes) > 0
-Quiet(hs) == \A n \in hs : LET d == Decide27(n, hs, {}, {}) IN ~Replicates(d) /\ d.del = "none"
-NoTasks(hs) == \A n \in hs : ~Replicates(Decide27(n, hs, {}, {}))
-i\* a check "replicates" when it hands the replicator a task with at least one candidate node. (With overlapping
-\* rules the code as found keeps calling the replicator with an EMPTY candidate list: a holder remembered from
-\* an earlier rule does not lower the shortage of a later rule - a phantom shortage that copies nothing.)
-Replicates(d) == \E k \in 1..Len(d.tasks) : Len(d.tasks[k].nodes) > 0
-Quiet(hs) == \A n \in hs : LET d == Decide27(n, hs, {}, {}) IN ~Replicates(d) /\ d.del = "none"
-NoTasks(hs) == \A n \in hs : ~Replicates(Decide27(n, hs, {}, {}))
-n\* a check "replicates" when it hands the replicator a task with at least one candidate node. (With overlapping
-\* rules the code as found keeps calling the replicator with an EMPTY candidate list: a holder remembered from
-\* an earlier rule does not lower the shortage of a later rule - a phantom shortage that copies nothing.)
-Replicates(d) == \E k \in 1..Len(d.tasks) : Len(d.tasks[k].nodes) > 0
-Quiet(hs) == \A n \in hs : LET d == Decide27(n, hs, {}, {}) IN ~Replicates(d) /\ d.del = "none"
-NoTasks(hs) == \A n \in hs : ~Replicates(Decide27(n, hs, {}, {}))
- \* a check "replicates" when it hands the replicator a task with at least one candidate node. (With overlapping
-\* rules the code as found keeps calling the replicator with an EMPTY candidate list: a holder remembered from
-\* an earlier rule does not lower the shortage of a later rule - a phantom shortage that copies nothing.)
-Replicates(d) == \E k \in 1..Len(d.tasks) : Len(d.tasks[k].nodes) > 0
-Quiet(hs) == \A n \in hs : LET d == Decide27(n, hs, {}, {}) IN ~Replicates(d) /\ d.del = "none"
-NoTasks(hs) == \A n \in hs : ~Replicates(Decide27(n, hs, {}, {}))
-d\* a check "replicates" when it hands the replicator a task with at least one candidate node. (With overlapping
-\* rules the code as found keeps calling the replicator with an EMPTY candidate list: a holder remembered from
-\* an earlier rule does not lower the shortage of a later rule - a phantom shortage that copies nothing.)
-Replicates(d) == \E k \in 1..Len(d.tasks) : Len(d.tasks[k].nodes) > 0
-Quiet(hs) == \A n \in hs : LET d == Decide27(n, hs, {}, {}) IN ~Replicates(d) /\ d.del = "none"
-NoTasks(hs) == \A n \in hs : ~Replicates(Decide27(n, hs, {}, {}))
-o\* a check "replicates" when it hands the replicator a task with at least one candidate node. (With overlapping
-\* rules the code as found keeps calling the replicator with an EMPTY candidate list: a holder remembered from
-\* an earlier rule does not lower the shortage of a later rule - a phantom shortage that copies nothing.)
-Replicates(d) == \E k \in 1..Len(d.tasks) : Len(d.tasks[k].nodes) > 0
-Quiet(hs) == \A n \in hs : LET d == Decide27(n, hs, {}, {}) IN ~Replicates(d) /\ d.del = "none"
-NoTasks(hs) == \A n \in hs : ~Replicates(Decide27(n, hs, {}, {}))
-w\* a check "replicates" when it hands the replicator a task with at least one candidate node. (With overlapping
-\* rules the code as found keeps calling the replicator with an EMPTY candidate list: a holder remembered from
-\* an earlier rule does not lower the shortage of a later rule - a phantom shortage that copies nothing.)
-Replicates(d) == \E k \in 1..Len(d.tasks) : Len(d.tasks[k].nodes) > 0
-Quiet(hs) == \A n \in hs : LET d == Decide27(n, hs, {}, {}) IN ~Replicates(d) /\ d.del = "none"
-NoTasks(hs) == \A n \in hs : ~Replicates(Decide27(n, hs, {}, {}))
-n\* a check "replicates" when it hands the replicator a task with at least one candidate node. (With overlapping
-\* rules the code as found keeps calling the replicator with an EMPTY candidate list: a holder remembered from
-\* an earlier rule does not lower the shortage of a later rule - a phantom shortage that copies nothing.)
-Replicates(d) == \E k \in 1..Len(d.tasks) : Len(d.tasks[k].nodes) > 0
-Quiet(hs) == \A n \in hs : LET d == Decide27(n, hs, {}, {}) IN ~Replicates(d) /\ d.del = "none"
-NoTasks(hs) == \A n \in hs : ~Replicates(Decide27(n, hs, {}, {}))
- \* a check "replicates" when it hands the replicator a task with at least one candidate node. (With overlapping
-\* rules the code as found keeps calling the replicator with an EMPTY candidate list: a holder remembered from
-\* an earlier rule does not lower the shortage of a later rule - a phantom shortage that copies nothing.)
-Replicates(d) == \E k \in 1..Len(d.tasks) : Len(d.tasks[k].nodes) > 0
-Quiet(hs) == \A n \in hs : LET d == Decide27(n, hs, {}, {}) IN ~Replicates(d) /\ d.del = "none"
-NoTasks(hs) == \A n \in hs : ~Replicates(Decide27(n, hs, {}, {}))
-T\* a check "replicates" when it hands the replicator a task with at least one candidate node. (With overlapping
-\* rules the code as found keeps calling the replicator with an EMPTY candidate list: a holder remembered from
-\* an earlier rule does not lower the shortage of a later rule - a phantom shortage that copies nothing.)
-Replicates(d) == \E k \in 1..Len(d.tasks) : Len(d.tasks[k].nodes) > 0
-Quiet(hs) == \A n \in hs : LET d == Decide27(n, hs, {}, {}) IN ~Replicates(d) /\ d.del = "none"
-NoTasks(hs) == \A n \in hs : ~Replicates(Decide27(n, hs, {}, {}))
-H\* a check "replicates" when it hands the replicator a task with at least one candidate node. (With overlapping
-\* rules the code as found keeps calling the replicator with an EMPTY candidate list: a holder remembered from
-\* an earlier rule does not lower the shortage of a later rule - a phantom shortage that copies nothing.)
-Replicates(d) == \E k \in 1..Len(d.tasks) : Len(d.tasks[k].nodes) > 0
-Quiet(hs) == \A n \in hs : LET d == Decide27(n, hs, {}, {}) IN ~Replicates(d) /\ d.del = "none"
-NoTasks(hs) == \A n \in hs : ~Replicates(Decide27(n, hs, {}, {}))
-E\* a check "replicates" when it hands the replicator a task with at least one candidate node. (With overlapping
-\* rules the code as found keeps calling the replicator with an EMPTY candidate list: a holder remembered from
-\* an earlier rule does not lower the shortage of a later rule - a phantom shortage that copies nothing.)
-Replicates(d) == \E k \in 1..Len(d.tasks) : Len(d.tasks[k].nodes) > 0
-Quiet(hs) == \A n \in hs : LET d == Decide27(n, hs, {}, {}) IN ~Replicates(d) /\ d.del = "none"
-NoTasks(hs) == \A n \in hs : ~Replicates(Decide27(n, hs, {}, {}))
-N\* a check "replicates" when it hands the replicator a task with at least one candidate node. (With overlapping
-\* rules the code as found keeps calling the replicator with an EMPTY candidate list: a holder remembered from
-\* an earlier rule does not lower the shortage of a later rule - a phantom shortage that copies nothing.)
-Replicates(d) == \E k \in 1..Len(d.tasks) : Len(d.tasks[k].nodes) > 0
-Quiet(hs) == \A n \in hs : LET d == Decide27(n, hs, {}, {}) IN ~Replicates(d) /\ d.del = "none"
-NoTasks(hs) == \A n \in hs : ~Replicates(Decide27(n, hs, {}, {}))
- \* a check "replicates" when it hands the replicator a task with at least one candidate node. (With overlapping
-\* rules the code as found keeps calling the replicator with an EMPTY candidate list: a holder remembered from
-\* an earlier rule does not lower the shortage of a later rule - a phantom shortage that copies nothing.)
-Replicates(d) == \E k \in 1..Len(d.tasks) : Len(d.tasks[k].nodes) > 0
-Quiet(hs) == \A n \in hs : LET d == Decide27(n, hs, {}, {}) IN ~Replicates(d) /\ d.del = "none"
-NoTasks(hs) == \A n \in hs : ~Replicates(Decide27(n, hs, {}, {}))
-"\* a check "replicates" when it hands the replicator a task with at least one candidate node. (With overlapping
-\* rules the code as found keeps calling the replicator with an EMPTY candidate list: a holder remembered from
-\* an earlier rule does not lower the shortage of a later rule - a phantom shortage that copies nothing.)
-Replicates(d) == \E k \in 1..Len(d.tasks) : Len(d.tasks[k].nodes) > 0
-Quiet(hs) == \A n \in hs : LET d == Decide27(n, hs, {}, {}) IN ~Replicates(d) /\ d.del = "none"
-NoTasks(hs) == \A n \in hs : ~Replicates(Decide27(n, hs, {}, {}))
-e\* a check "replicates" when it hands the replicator a task with at least one candidate node. (With overlapping
-\* rules the code as found keeps calling the replicator with an EMPTY candidate list: a holder remembered from
-\* an earlier rule does not lower the shortage of a later rule - a phantom shortage that copies nothing.)
-Replicates(d) == \E k \in 1..Len(d.tasks) : Len(d.tasks[k].nodes) > 0
-Quiet(hs) == \A n \in hs : LET d == Decide27(n, hs, {}, {}) IN ~Replicates(d) /\ d.del = "none"
-NoTasks(hs) == \A n \in hs : ~Replicates(Decide27(n, hs, {}, {}))
-r\* a check "replicates" when it hands the replicator a task with at least one candidate node. (With overlapping
-\* rules the code as found keeps calling the replicator with an EMPTY candidate list: a holder remembered from
-\* an earlier rule does not lower the shortage of a later rule - a phantom shortage that copies nothing.)
-Replicates(d) == \E k \in 1..Len(d.tasks) : Len(d.tasks[k].nodes) > 0
-Quiet(hs) == \A n \in hs : LET d == Decide27(n, hs, {}, {}) IN ~Replicates(d) /\ d.del = "none"
-NoTasks(hs) == \A n \in hs : ~Replicates(Decide27(n, hs, {}, {}))
-r\* a check "replicates" when it hands the replicator a task with at least one candidate node. (With overlapping
-\* rules the code as found keeps calling the replicator with an EMPTY candidate list: a holder remembered from
-\* an earlier rule does not lower the shortage of a later rule - a phantom shortage that copies nothing.)
-Replicates(d) == \E k \in 1..Len(d.tasks) : Len(d.tasks[k].nodes) > 0
-Quiet(hs) == \A n \in hs : LET d == Decide27(n, hs, {}, {}) IN ~Replicates(d) /\ d.del = "none"
-NoTasks(hs) == \A n \in hs : ~Replicates(Decide27(n, hs, {}, {}))
-"\* a check "replicates" when it hands the replicator a task with at least one candidate node. (With overlapping
-\* rules the code as found keeps calling the replicator with an EMPTY candidate list: a holder remembered from
-\* an earlier rule does not lower the shortage of a later rule - a phantom shortage that copies nothing.)
-Replicates(d) == \E k \in 1..Len(d.tasks) : Len(d.tasks[k].nodes) > 0
-Quiet(hs) == \A n \in hs : LET d == Decide27(n, hs, {}, {}) IN ~Replicates(d) /\ d.del = "none"
-NoTasks(hs) == \A n \in hs : ~Replicates(Decide27(n, hs, {}, {}))
- \* a check "replicates" when it hands the replicator a task with at least one candidate node. (With overlapping
-\* rules the code as found keeps calling the replicator with an EMPTY candidate list: a holder remembered from
-\* an earlier rule does not lower the shortage of a later rule - a phantom shortage that copies nothing.)
-Replicates(d) == \E k \in 1..Len(d.tasks) : Len(d.tasks[k].nodes) > 0
-Quiet(hs) == \A n \in hs : LET d == Decide27(n, hs, {}, {}) IN ~Replicates(d) /\ d.del = "none"
-NoTasks(hs) == \A n \in hs : ~Replicates(Decide27(n, hs, {}, {}))
-E\* a check "replicates" when it hands the replicator a task with at least one candidate node. (With overlapping
-\* rules the code as found keeps calling the replicator with an EMPTY candidate list: a holder remembered from
-\* an earlier rule does not lower the shortage of a later rule - a phantom shortage that copies nothing.)
-Replicates(d) == \E k \in 1..Len(d.tasks) : Len(d.tasks[k].nodes) > 0
-Quiet(hs) == \A n \in hs : LET d == Decide27(n, hs, {}, {}) IN ~Replicates(d) /\ d.del = "none"
-NoTasks(hs) == \A n \in hs : ~Replicates(Decide27(n, hs, {}, {}))
-L\* a check "replicates" when it hands the replicator a task with at least one candidate node. (With overlapping
-\* rules the code as found keeps calling the replicator with an EMPTY candidate list: a holder remembered from
-\* an earlier rule does not lower the shortage of a later rule - a phantom shortage that copies nothing.)
-Replicates(d) == \E k \in 1..Len(d.tasks) : Len(d.tasks[k].nodes) > 0
-Quiet(hs) == \A n \in hs : LET d == Decide27(n, hs, {}, {}) IN ~Replicates(d) /\ d.del = "none"
-NoTasks(hs) == \A n \in hs : ~Replicates(Decide27(n, hs, {}, {}))
-S\* a check "replicates" when it hands the replicator a task with at least one candidate node. (With overlapping
-\* rules the code as found keeps calling the replicator with an EMPTY candidate list: a holder remembered from
-\* an earlier rule does not lower the shortage of a later rule - a phantom shortage that copies nothing.)
-Replicates(d) == \E k \in 1..Len(d.tasks) : Len(d.tasks[k].nodes) > 0
-Quiet(hs) == \A n \in hs : LET d == Decide27(n, hs, {}, {}) IN ~Replicates(d) /\ d.del = "none"
-NoTasks(hs) == \A n \in hs : ~Replicates(Decide27(n, hs, {}, {}))
-E\* a check "replicates" when it hands the replicator a task with at least one candidate node. (With overlapping
-\* rules the code as found keeps calling the replicator with an EMPTY candidate list: a holder remembered from
-\* an earlier rule does not lower the shortage of a later rule - a phantom shortage that copies nothing.)
-Replicates(d) == \E k \in 1..Len(d.tasks) : Len(d.tasks[k].nodes) > 0
-Quiet(hs) == \A n \in hs : LET d == Decide27(n, hs, {}, {}) IN ~Replicates(d) /\ d.del = "none"
-NoTasks(hs) == \A n \in hs : ~Replicates(Decide27(n, hs, {}, {}))
- \* a check "replicates" when it hands the replicator a task with at least one candidate node. (With overlapping
-\* rules the code as found keeps calling the replicator with an EMPTY candidate list: a holder remembered from
-\* an earlier rule does not lower the shortage of a later rule - a phantom shortage that copies nothing.)
-Replicates(d) == \E k \in 1..Len(d.tasks) : Len(d.tasks[k].nodes) > 0
-Quiet(hs) == \A n \in hs : LET d == Decide27(n, hs, {}, {}) IN ~Replicates(d) /\ d.del = "none"
-NoTasks(hs) == \A n \in hs : ~Replicates(Decide27(n, hs, {}, {}))
-I\* a check "replicates" when it hands the replicator a task with at least one candidate node. (With overlapping
-\* rules the code as found keeps calling the replicator with an EMPTY candidate list: a holder remembered from
-\* an earlier rule does not lower the shortage of a later rule - a phantom shortage that copies nothing.)
-Replicates(d) == \E k \in 1..Len(d.tasks) : Len(d.tasks[k].nodes) > 0
-Quiet(hs) == \A n \in hs : LET d == Decide27(n, hs, {}, {}) IN ~Replicates(d) /\ d.del = "none"
-NoTasks(hs) == \A n \in hs : ~Replicates(Decide27(n, hs, {}, {}))
-F\* a check "replicates" when it hands the replicator a task with at least one candidate node. (With overlapping
-\* rules the code as found keeps calling the replicator with an EMPTY candidate list: a holder remembered from
-\* an earlier rule does not lower the shortage of a later rule - a phantom shortage that copies nothing.)
-Replicates(d) == \E k \in 1..Len(d.tasks) : Len(d.tasks[k].nodes) > 0
-Quiet(hs) == \A n \in hs : LET d == Decide27(n, hs, {}, {}) IN ~Replicates(d) /\ d.del = "none"
-NoTasks(hs) == \A n \in hs : ~Replicates(Decide27(n, hs, {}, {}))
- \* a check "replicates" when it hands the replicator a task with at least one candidate node. (With overlapping
-\* rules the code as found keeps calling the replicator with an EMPTY candidate list: a holder remembered from
-\* an earlier rule does not lower the shortage of a later rule - a phantom shortage that copies nothing.)
-Replicates(d) == \E k \in 1..Len(d.tasks) : Len(d.tasks[k].nodes) > 0
-Quiet(hs) == \A n \in hs : LET d == Decide27(n, hs, {}, {}) IN ~Replicates(d) /\ d.del = "none"
-NoTasks(hs) == \A n \in hs : ~Replicates(Decide27(n, hs, {}, {}))
-S\* a check "replicates" when it hands the replicator a task with at least one candidate node. (With overlapping
-\* rules the code as found keeps calling the replicator with an EMPTY candidate list: a holder remembered from
-\* an earlier rule does not lower the shortage of a later rule - a phantom shortage that copies nothing.)
-Replicates(d) == \E k \in 1..Len(d.tasks) : Len(d.tasks[k].nodes) > 0
-Quiet(hs) == \A n \in hs : LET d == Decide27(n, hs, {}, {}) IN ~Replicates(d) /\ d.del = "none"
-NoTasks(hs) == \A n \in hs : ~Replicates(Decide27(n, hs, {}, {}))
-w\* a check "replicates" when it hands the replicator a task with at least one candidate node. (With overlapping
-\* rules the code as found keeps calling the replicator with an EMPTY candidate list: a holder remembered from
-\* an earlier rule does not lower the shortage of a later rule - a phantom shortage that copies nothing.)
-Replicates(d) == \E k \in 1..Len(d.tasks) : Len(d.tasks[k].nodes) > 0
-Quiet(hs) == \A n \in hs : LET d == Decide27(n, hs, {}, {}) IN ~Replicates(d) /\ d.del = "none"
-NoTasks(hs) == \A n \in hs : ~Replicates(Decide27(n, hs, {}, {}))
-a\* a check "replicates" when it hands the replicator a task with at least one candidate node. (With overlapping
-\* rules the code as found keeps calling the replicator with an EMPTY candidate list: a holder remembered from
-\* an earlier rule does not lower the shortage of a later rule - a phantom shortage that copies nothing.)
-Replicates(d) == \E k \in 1..Len(d.tasks) : Len(d.tasks[k].nodes) > 0
-Quiet(hs) == \A n \in hs : LET d == Decide27(n, hs, {}, {}) IN ~Replicates(d) /\ d.del = "none"
-NoTasks(hs) == \A n \in hs : ~Replicates(Decide27(n, hs, {}, {}))
-p\* a check "replicates" when it hands the replicator a task with at least one candidate node. (With overlapping
-\* rules the code as found keeps calling the replicator with an EMPTY candidate list: a holder remembered from
-\* an earlier rule does not lower the shortage of a later rule - a phantom shortage that copies nothing.)
-Replicates(d) == \E k \in 1..Len(d.tasks) : Len(d.tasks[k].nodes) > 0
-Quiet(hs) == \A n \in hs : LET d == Decide27(n, hs, {}, {}) IN ~Replicates(d) /\ d.del = "none"
-NoTasks(hs) == \A n \in hs : ~Replicates(Decide27(n, hs, {}, {}))
-(\* a check "replicates" when it hands the replicator a task with at least one candidate node. (With overlapping
-\* rules the code as found keeps calling the replicator with an EMPTY candidate list: a holder remembered from
-\* an earlier rule does not lower the shortage of a later rule - a phantom shortage that copies nothing.)
-Replicates(d) == \E k \in 1..Len(d.tasks) : Len(d.tasks[k].nodes) > 0
-Quiet(hs) == \A n \in hs : LET d == Decide27(n, hs, {}, {}) IN ~Replicates(d) /\ d.del = "none"
-NoTasks(hs) == \A n \in hs : ~Replicates(Decide27(n, hs, {}, {}))
-n\* a check "replicates" when it hands the replicator a task with at least one candidate node. (With overlapping
-\* rules the code as found keeps calling the replicator with an EMPTY candidate list: a holder remembered from
-\* an earlier rule does not lower the shortage of a later rule - a phantom shortage that copies nothing.)
-Replicates(d) == \E k \in 1..Len(d.tasks) : Len(d.tasks[k].nodes) > 0
-Quiet(hs) == \A n \in hs : LET d == Decide27(n, hs, {}, {}) IN ~Replicates(d) /\ d.del = "none"
-NoTasks(hs) == \A n \in hs : ~Replicates(Decide27(n, hs, {}, {}))
-,\* a check "replicates" when it hands the replicator a task with at least one candidate node. (With overlapping
-\* rules the code as found keeps calling the replicator with an EMPTY candidate list: a holder remembered from
-\* an earlier rule does not lower the shortage of a later rule - a phantom shortage that copies nothing.)
-Replicates(d) == \E k \in 1..Len(d.tasks) : Len(d.tasks[k].nodes) > 0
-Quiet(hs) == \A n \in hs : LET d == Decide27(n, hs, {}, {}) IN ~Replicates(d) /\ d.del = "none"
-NoTasks(hs) == \A n \in hs : ~Replicates(Decide27(n, hs, {}, {}))
- \* a check "replicates" when it hands the replicator a task with at least one candidate node. (With overlapping
-\* rules the code as found keeps calling the replicator with an EMPTY candidate list: a holder remembered from
-\* an earlier rule does not lower the shortage of a later rule - a phantom shortage that copies nothing.)
-Replicates(d) == \E k \in 1..Len(d.tasks) : Len(d.tasks[k].nodes) > 0
-Quiet(hs) == \A n \in hs : LET d == Decide27(n, hs, {}, {}) IN ~Replicates(d) /\ d.del = "none"
-NoTasks(hs) == \A n \in hs : ~Replicates(Decide27(n, hs, {}, {}))
-x\* a check "replicates" when it hands the replicator a task with at least one candidate node. (With overlapping
-\* rules the code as found keeps calling the replicator with an EMPTY candidate list: a holder remembered from
-\* an earlier rule does not lower the shortage of a later rule - a phantom shortage that copies nothing.)
-Replicates(d) == \E k \in 1..Len(d.tasks) : Len(d.tasks[k].nodes) > 0
-Quiet(hs) == \A n \in hs : LET d == Decide27(n, hs, {}, {}) IN ~Replicates(d) /\ d.del = "none"
-NoTasks(hs) == \A n \in hs : ~Replicates(Decide27(n, hs, {}, {}))
-)\* a check "replicates" when it hands the replicator a task with at least one candidate node. (With overlapping
-\* rules the code as found keeps calling the replicator with an EMPTY candidate list: a holder remembered from
-\* an earlier rule does not lower the shortage of a later rule - a phantom shortage that copies nothing.)
-Replicates(d) == \E k \in 1..Len(d.tasks) : Len(d.tasks[k].nodes) > 0
-Quiet(hs) == \A n \in hs : LET d == Decide27(n, hs, {}, {}) IN ~Replicates(d) /\ d.del = "none"
-NoTasks(hs) == \A n \in hs : ~Replicates(Decide27(n, hs, {}, {}))
- \* a check "replicates" when it hands the replicator a task with at least one candidate node. (With overlapping
-\* rules the code as found keeps calling the replicator with an EMPTY candidate list: a holder remembered from
-\* an earlier rule does not lower the shortage of a later rule - a phantom shortage that copies nothing.)
-Replicates(d) == \E k \in 1..Len(d.tasks) : Len(d.tasks[k].nodes) > 0
-Quiet(hs) == \A n \in hs : LET d == Decide27(n, hs, {}, {}) IN ~Replicates(d) /\ d.del = "none"
-NoTasks(hs) == \A n \in hs : ~Replicates(Decide27(n, hs, {}, {}))
-\\* a check "replicates" when it hands the replicator a task with at least one candidate node. (With overlapping
-\* rules the code as found keeps calling the replicator with an EMPTY candidate list: a holder remembered from
-\* an earlier rule does not lower the shortage of a later rule - a phantom shortage that copies nothing.)
-Replicates(d) == \E k \in 1..Len(d.tasks) : Len(d.tasks[k].nodes) > 0
-Quiet(hs) == \A n \in hs : LET d == Decide27(n, hs, {}, {}) IN ~Replicates(d) /\ d.del = "none"
-NoTasks(hs) == \A n \in hs : ~Replicates(Decide27(n, hs, {}, {}))
-i\* a check "replicates" when it hands the replicator a task with at least one candidate node. (With overlapping
-\* rules the code as found keeps calling the replicator with an EMPTY candidate list: a holder remembered from
-\* an earlier rule does not lower the shortage of a later rule - a phantom shortage that copies nothing.)
-Replicates(d) == \E k \in 1..Len(d.tasks) : Len(d.tasks[k].nodes) > 0
-Quiet(hs) == \A n \in hs : LET d == Decide27(n, hs, {}, {}) IN ~Replicates(d) /\ d.del = "none"
-NoTasks(hs) == \A n \in hs : ~Replicates(Decide27(n, hs, {}, {}))
-n\* a check "replicates" when it hands the replicator a task with at least one candidate node. (With overlapping
-\* rules the code as found keeps calling the replicator with an EMPTY candidate list: a holder remembered from
-\* an earlier rule does not lower the shortage of a later rule - a phantom shortage that copies nothing.)
-Replicates(d) == \E k \in 1..Len(d.tasks) : Len(d.tasks[k].nodes) > 0
-Quiet(hs) == \A n \in hs : LET d == Decide27(n, hs, {}, {}) IN ~Replicates(d) /\ d.del = "none"
-NoTasks(hs) == \A n \in hs : ~Replicates(Decide27(n, hs, {}, {}))
- \* a check "replicates" when it hands the replicator a task with at least one candidate node. (With overlapping
-\* rules the code as found keeps calling the replicator with an EMPTY candidate list: a holder remembered from
-\* an earlier rule does not lower the shortage of a later rule - a phantom shortage that copies nothing.)
-Replicates(d) == \E k \in 1..Len(d.tasks) : Len(d.tasks[k].nodes) > 0
-Quiet(hs) == \A n \in hs : LET d == Decide27(n, hs, {}, {}) IN ~Replicates(d) /\ d.del = "none"
-NoTasks(hs) == \A n \in hs : ~Replicates(Decide27(n, hs, {}, {}))
-h\* a check "replicates" when it hands the replicator a task with at least one candidate node. (With overlapping
-\* rules the code as found keeps calling the replicator with an EMPTY candidate list: a holder remembered from
-\* an earlier rule does not lower the shortage of a later rule - a phantom shortage that copies nothing.)
-Replicates(d) == \E k \in 1..Len(d.tasks) : Len(d.tasks[k].nodes) > 0
-Quiet(hs) == \A n \in hs : LET d == Decide27(n, hs, {}, {}) IN ~Replicates(d) /\ d.del = "none"
-NoTasks(hs) == \A n \in hs : ~Replicates(Decide27(n, hs, {}, {}))
-s\* a check "replicates" when it hands the replicator a task with at least one candidate node. (With overlapping
-\* rules the code as found keeps calling the replicator with an EMPTY candidate list: a holder remembered from
-\* an earlier rule does not lower the shortage of a later rule - a phantom shortage that copies nothing.)
-Replicates(d) == \E k \in 1..Len(d.tasks) : Len(d.tasks[k].nodes) > 0
-Quiet(hs) == \A n \in hs : LET d == Decide27(n, hs, {}, {}) IN ~Replicates(d) /\ d.del = "none"
-NoTasks(hs) == \A n \in hs : ~Replicates(Decide27(n, hs, {}, {}))
- \* a check "replicates" when it hands the replicator a task with at least one candidate node. (With overlapping
-\* rules the code as found keeps calling the replicator with an EMPTY candidate list: a holder remembered from
-\* an earlier rule does not lower the shortage of a later rule - a phantom shortage that copies nothing.)
-Replicates(d) == \E k \in 1..Len(d.tasks) : Len(d.tasks[k].nodes) > 0
-Quiet(hs) == \A n \in hs : LET d == Decide27(n, hs, {}, {}) IN ~Replicates(d) /\ d.del = "none"
-NoTasks(hs) == \A n \in hs : ~Replicates(Decide27(n, hs, {}, {}))
-T\* a check "replicates" when it hands the replicator a task with at least one candidate node. (With overlapping
-\* rules the code as found keeps calling the replicator with an EMPTY candidate list: a holder remembered from
-\* an earlier rule does not lower the shortage of a later rule - a phantom shortage that copies nothing.)
-Replicates(d) == \E k \in 1..Len(d.tasks) : Len(d.tasks[k].nodes) > 0
-Quiet(hs) == \A n \in hs : LET d == Decide27(n, hs, {}, {}) IN ~Replicates(d) /\ d.del = "none"
-NoTasks(hs) == \A n \in hs : ~Replicates(Decide27(n, hs, {}, {}))
-H\* a check "replicates" when it hands the replicator a task with at least one candidate node. (With overlapping
-\* rules the code as found keeps calling the replicator with an EMPTY candidate list: a holder remembered from
-\* an earlier rule does not lower the shortage of a later rule - a phantom shortage that copies nothing.)
-Replicates(d) == \E k \in 1..Len(d.tasks) : Len(d.tasks[k].nodes) > 0
-Quiet(hs) == \A n \in hs : LET d == Decide27(n, hs, {}, {}) IN ~Replicates(d) /\ d.del = "none"
-NoTasks(hs) == \A n \in hs : ~Replicates(Decide27(n, hs, {}, {}))
-E\* a check "replicates" when it hands the replicator a task with at least one candidate node. (With overlapping
-\* rules the code as found keeps calling the replicator with an EMPTY candidate list: a holder remembered from
-\* an earlier rule does not lower the shortage of a later rule - a phantom shortage that copies nothing.)
-Replicates(d) == \E k \in 1..Len(d.tasks) : Len(d.tasks[k].nodes) > 0
-Quiet(hs) == \A n \in hs : LET d == Decide27(n, hs, {}, {}) IN ~Replicates(d) /\ d.del = "none"
-NoTasks(hs) == \A n \in hs : ~Replicates(Decide27(n, hs, {}, {}))
-N\* a check "replicates" when it hands the replicator a task with at least one candidate node. (With overlapping
-\* rules the code as found keeps calling the replicator with an EMPTY candidate list: a holder remembered from
-\* an earlier rule does not lower the shortage of a later rule - a phantom shortage that copies nothing.)
-Replicates(d) == \E k \in 1..Len(d.tasks) : Len(d.tasks[k].nodes) > 0
-Quiet(hs) == \A n \in hs : LET d == Decide27(n, hs, {}, {}) IN ~Replicates(d) /\ d.del = "none"
-NoTasks(hs) == \A n \in hs : ~Replicates(Decide27(n, hs, {}, {}))
- \* a check "replicates" when it hands the replicator a task with at least one candidate node. (With overlapping
-\* rules the code as found keeps calling the replicator with an EMPTY candidate list: a holder remembered from
-\* an earlier rule does not lower the shortage of a later rule - a phantom shortage that copies nothing.)
-Replicates(d) == \E k \in 1..Len(d.tasks) : Len(d.tasks[k].nodes) > 0
-Quiet(hs) == \A n \in hs : LET d == Decide27(n, hs, {}, {}) IN ~Replicates(d) /\ d.del = "none"
-NoTasks(hs) == \A n \in hs : ~Replicates(Decide27(n, hs, {}, {}))
-"\* a check "replicates" when it hands the replicator a task with at least one candidate node. (With overlapping
-\* rules the code as found keeps calling the replicator with an EMPTY candidate list: a holder remembered from
-\* an earlier rule does not lower the shortage of a later rule - a phantom shortage that copies nothing.)
-Replicates(d) == \E k \in 1..Len(d.tasks) : Len(d.tasks[k].nodes) > 0
-Quiet(hs) == \A n \in hs : LET d == Decide27(n, hs, {}, {}) IN ~Replicates(d) /\ d.del = "none"
-NoTasks(hs) == \A n \in hs : ~Replicates(Decide27(n, hs, {}, {}))
-h\* a check "replicates" when it hands the replicator a task with at least one candidate node. (With overlapping
-\* rules the code as found keeps calling the replicator with an EMPTY candidate list: a holder remembered from
-\* an earlier rule does not lower the shortage of a later rule - a phantom shortage that copies nothing.)
-Replicates(d) == \E k \in 1..Len(d.tasks) : Len(d.tasks[k].nodes) > 0
-Quiet(hs) == \A n \in hs : LET d == Decide27(n, hs, {}, {}) IN ~Replicates(d) /\ d.del = "none"
-NoTasks(hs) == \A n \in hs : ~Replicates(Decide27(n, hs, {}, {}))
-a\* a check "replicates" when it hands the replicator a task with at least one candidate node. (With overlapping
-\* rules the code as found keeps calling the replicator with an EMPTY candidate list: a holder remembered from
-\* an earlier rule does not lower the shortage of a later rule - a phantom shortage that copies nothing.)
-Replicates(d) == \E k \in 1..Len(d.tasks) : Len(d.tasks[k].nodes) > 0
-Quiet(hs) == \A n \in hs : LET d == Decide27(n, hs, {}, {}) IN ~Replicates(d) /\ d.del = "none"
-NoTasks(hs) == \A n \in hs : ~Replicates(Decide27(n, hs, {}, {}))
-s\* a check "replicates" when it hands the replicator a task with at least one candidate node. (With overlapping
-\* rules the code as found keeps calling the replicator with an EMPTY candidate list: a holder remembered from
-\* an earlier rule does not lower the shortage of a later rule - a phantom shortage that copies nothing.)
-Replicates(d) == \E k \in 1..Len(d.tasks) : Len(d.tasks[k].nodes) > 0
-Quiet(hs) == \A n \in hs : LET d == Decide27(n, hs, {}, {}) IN ~Replicates(d) /\ d.del = "none"
-NoTasks(hs) == \A n \in hs : ~Replicates(Decide27(n, hs, {}, {}))
-"\* a check "replicates" when it hands the replicator a task with at least one candidate node. (With overlapping
-\* rules the code as found keeps calling the replicator with an EMPTY candidate list: a holder remembered from
-\* an earlier rule does not lower the shortage of a later rule - a phantom shortage that copies nothing.)
-Replicates(d) == \E k \in 1..Len(d.tasks) : Len(d.tasks[k].nodes) > 0
-Quiet(hs) == \A n \in hs : LET d == Decide27(n, hs, {}, {}) IN ~Replicates(d) /\ d.del = "none"
-NoTasks(hs) == \A n \in hs : ~Replicates(Decide27(n, hs, {}, {}))
-
-\* a check "replicates" when it hands the replicator a task with at least one candidate node. (With overlapping
-\* rules the code as found keeps calling the replicator with an EMPTY candidate list: a holder remembered from
-\* an earlier rule does not lower the shortage of a later rule - a phantom shortage that copies nothing.)
-Replicates(d) == \E k \in 1..Len(d.tasks) : Len(d.tasks[k].nodes) > 0
-Quiet(hs) == \A n \in hs : LET d == Decide27(n, hs, {}, {}) IN ~Replicates(d) /\ d.del = "none"
-NoTasks(hs) == \A n \in hs : ~Replicates(Decide27(n, hs, {}, {}))
- \* a check "replicates" when it hands the replicator a task with at least one candidate node. (With overlapping
-\* rules the code as found keeps calling the replicator with an EMPTY candidate list: a holder remembered from
-\* an earlier rule does not lower the shortage of a later rule - a phantom shortage that copies nothing.)
-Replicates(d) == \E k \in 1..Len(d.tasks) : Len(d.tasks[k].nodes) > 0
-Quiet(hs) == \A n \in hs : LET d == Decide27(n, hs, {}, {}) IN ~Replicates(d) /\ d.del = "none"
-NoTasks(hs) == \A n \in hs : ~Replicates(Decide27(n, hs, {}, {}))
- \* a check "replicates" when it hands the replicator a task with at least one candidate node. (With overlapping
-\* rules the code as found keeps calling the replicator with an EMPTY candidate list: a holder remembered from
-\* an earlier rule does not lower the shortage of a later rule - a phantom shortage that copies nothing.)
-Replicates(d) == \E k \in 1..Len(d.tasks) : Len(d.tasks[k].nodes) > 0
-Quiet(hs) == \A n \in hs : LET d == Decide27(n, hs, {}, {}) IN ~Replicates(d) /\ d.del = "none"
-NoTasks(hs) == \A n \in hs : ~Replicates(Decide27(n, hs, {}, {}))
- \* a check "replicates" when it hands the replicator a task with at least one candidate node. (With overlapping
-\* rules the code as found keeps calling the replicator with an EMPTY candidate list: a holder remembered from
-\* an earlier rule does not lower the shortage of a later rule - a phantom shortage that copies nothing.)
-Replicates(d) == \E k \in 1..Len(d.tasks) : Len(d.tasks[k].nodes) > 0
-Quiet(hs) == \A n \in hs : LET d == Decide27(n, hs, {}, {}) IN ~Replicates(d) /\ d.del = "none"
-NoTasks(hs) == \A n \in hs : ~Replicates(Decide27(n, hs, {}, {}))
- \* a check "replicates" when it hands the replicator a task with at least one candidate node. (With overlapping
-\* rules the code as found keeps calling the replicator with an EMPTY candidate list: a holder remembered from
-\* an earlier rule does not lower the shortage of a later rule - a phantom shortage that copies nothing.)
-Replicates(d) == \E k \in 1..Len(d.tasks) : Len(d.tasks[k].nodes) > 0
-Quiet(hs) == \A n \in hs : LET d == Decide27(n, hs, {}, {}) IN ~Replicates(d) /\ d.del = "none"
-NoTasks(hs) == \A n \in hs : ~Replicates(Decide27(n, hs, {}, {}))
- \* a check "replicates" when it hands the replicator a task with at least one candidate node. (With overlapping
-\* rules the code as found keeps calling the replicator with an EMPTY candidate list: a holder remembered from
-\* an earlier rule does not lower the shortage of a later rule - a phantom shortage that copies nothing.)
-Replicates(d) == \E k \in 1..Len(d.tasks) : Len(d.tasks[k].nodes) > 0
-Quiet(hs) == \A n \in hs : LET d == Decide27(n, hs, {}, {}) IN ~Replicates(d) /\ d.del = "none"
-NoTasks(hs) == \A n \in hs : ~Replicates(Decide27(n, hs, {}, {}))
- \* a check "replicates" when it hands the replicator a task with at least one candidate node. (With overlapping
-\* rules the code as found keeps calling the replicator with an EMPTY candidate list: a holder remembered from
-\* an earlier rule does not lower the shortage of a later rule - a phantom shortage that copies nothing.)
-Replicates(d) == \E k \in 1..Len(d.tasks) : Len(d.tasks[k].nodes) > 0
-Quiet(hs) == \A n \in hs : LET d == Decide27(n, hs, {}, {}) IN ~Replicates(d) /\ d.del = "none"
-NoTasks(hs) == \A n \in hs : ~Replicates(Decide27(n, hs, {}, {}))
- \* a check "replicates" when it hands the replicator a task with at least one candidate node. (With overlapping
-\* rules the code as found keeps calling the replicator with an EMPTY candidate list: a holder remembered from
-\* an earlier rule does not lower the shortage of a later rule - a phantom shortage that copies nothing.)
-Replicates(d) == \E k \in 1..Len(d.tasks) : Len(d.tasks[k].nodes) > 0
-Quiet(hs) == \A n \in hs : LET d == Decide27(n, hs, {}, {}) IN ~Replicates(d) /\ d.del = "none"
-NoTasks(hs) == \A n \in hs : ~Replicates(Decide27(n, hs, {}, {}))
- \* a check "replicates" when it hands the replicator a task with at least one candidate node. (With overlapping
-\* rules the code as found keeps calling the replicator with an EMPTY candidate list: a holder remembered from
-\* an earlier rule does not lower the shortage of a later rule - a phantom shortage that copies nothing.)
-Replicates(d) == \E k \in 1..Len(d.tasks) : Len(d.tasks[k].nodes) > 0
-Quiet(hs) == \A n \in hs : LET d == Decide27(n, hs, {}, {}) IN ~Replicates(d) /\ d.del = "none"
-NoTasks(hs) == \A n \in hs : ~Replicates(Decide27(n, hs, {}, {}))
- \* a check "replicates" when it hands the replicator a task with at least one candidate node. (With overlapping
-\* rules the code as found keeps calling the replicator with an EMPTY candidate list: a holder remembered from
-\* an earlier rule does not lower the shortage of a later rule - a phantom shortage that copies nothing.)
-Replicates(d) == \E k \in 1..Len(d.tasks) : Len(d.tasks[k].nodes) > 0
-Quiet(hs) == \A n \in hs : LET d == Decide27(n, hs, {}, {}) IN ~Replicates(d) /\ d.del = "none"
-NoTasks(hs) == \A n \in hs : ~Replicates(Decide27(n, hs, {}, {}))
- \* a check "replicates" when it hands the replicator a task with at least one candidate node. (With overlapping
-\* rules the code as found keeps calling the replicator with an EMPTY candidate list: a holder remembered from
-\* an earlier rule does not lower the shortage of a later rule - a phantom shortage that copies nothing.)
-Replicates(d) == \E k \in 1..Len(d.tasks) : Len(d.tasks[k].nodes) > 0
-Quiet(hs) == \A n \in hs : LET d == Decide27(n, hs, {}, {}) IN ~Replicates(d) /\ d.del = "none"
-NoTasks(hs) == \A n \in hs : ~Replicates(Decide27(n, hs, {}, {}))
- \* a check "replicates" when it hands the replicator a task with at least one candidate node. (With overlapping
-\* rules the code as found keeps calling the replicator with an EMPTY candidate list: a holder remembered from
-\* an earlier rule does not lower the shortage of a later rule - a phantom shortage that copies nothing.)
-Replicates(d) == \E k \in 1..Len(d.tasks) : Len(d.tasks[k].nodes) > 0
-Quiet(hs) == \A n \in hs : LET d == Decide27(n, hs, {}, {}) IN ~Replicates(d) /\ d.del = "none"
-NoTasks(hs) == \A n \in hs : ~Replicates(Decide27(n, hs, {}, {}))
- \* a check "replicates" when it hands the replicator a task with at least one candidate node. (With overlapping
-\* rules the code as found keeps calling the replicator with an EMPTY candidate list: a holder remembered from
-\* an earlier rule does not lower the shortage of a later rule - a phantom shortage that copies nothing.)
-Replicates(d) == \E k \in 1..Len(d.tasks) : Len(d.tasks[k].nodes) > 0
-Quiet(hs) == \A n \in hs : LET d == Decide27(n, hs, {}, {}) IN ~Replicates(d) /\ d.del = "none"
-NoTasks(hs) == \A n \in hs : ~Replicates(Decide27(n, hs, {}, {}))
- \* a check "replicates" when it hands the replicator a task with at least one candidate node. (With overlapping
-\* rules the code as found keeps calling the replicator with an EMPTY candidate list: a holder remembered from
-\* an earlier rule does not lower the shortage of a later rule - a phantom shortage that copies nothing.)
-Replicates(d) == \E k \in 1..Len(d.tasks) : Len(d.tasks[k].nodes) > 0
-Quiet(hs) == \A n \in hs : LET d == Decide27(n, hs, {}, {}) IN ~Replicates(d) /\ d.del = "none"
-NoTasks(hs) == \A n \in hs : ~Replicates(Decide27(n, hs, {}, {}))
- \* a check "replicates" when it hands the replicator a task with at least one candidate node. (With overlapping
-\* rules the code as found keeps calling the replicator with an EMPTY candidate list: a holder remembered from
-\* an earlier rule does not lower the shortage of a later rule - a phantom shortage that copies nothing.)
-Replicates(d) == \E k \in 1..Len(d.tasks) : Len(d.tasks[k].nodes) > 0
-Quiet(hs) == \A n \in hs : LET d == Decide27(n, hs, {}, {}) IN ~Replicates(d) /\ d.del = "none"
-NoTasks(hs) == \A n \in hs : ~Replicates(Decide27(n, hs, {}, {}))
- \* a check "replicates" when it hands the replicator a task with at least one candidate node. (With overlapping
-\* rules the code as found keeps calling the replicator with an EMPTY candidate list: a holder remembered from
-\* an earlier rule does not lower the shortage of a later rule - a phantom shortage that copies nothing.)
-Replicates(d) == \E k \in 1..Len(d.tasks) : Len(d.tasks[k].nodes) > 0
-Quiet(hs) == \A n \in hs : LET d == Decide27(n, hs, {}, {}) IN ~Replicates(d) /\ d.del = "none"
-NoTasks(hs) == \A n \in hs : ~Replicates(Decide27(n, hs, {}, {}))
- \* a check "replicates" when it hands the replicator a task with at least one candidate node. (With overlapping
-\* rules the code as found keeps calling the replicator with an EMPTY candidate list: a holder remembered from
-\* an earlier rule does not lower the shortage of a later rule - a phantom shortage that copies nothing.)
-Replicates(d) == \E k \in 1..Len(d.tasks) : Len(d.tasks[k].nodes) > 0
-Quiet(hs) == \A n \in hs : LET d == Decide27(n, hs, {}, {}) IN ~Replicates(d) /\ d.del = "none"
-NoTasks(hs) == \A n \in hs : ~Replicates(Decide27(n, hs, {}, {}))
- \* a check "replicates" when it hands the replicator a task with at least one candidate node. (With overlapping
-\* rules the code as found keeps calling the replicator with an EMPTY candidate list: a holder remembered from
-\* an earlier rule does not lower the shortage of a later rule - a phantom shortage that copies nothing.)
-Replicates(d) == \E k \in 1..Len(d.tasks) : Len(d.tasks[k].nodes) > 0
-Quiet(hs) == \A n \in hs : LET d == Decide27(n, hs, {}, {}) IN ~Replicates(d) /\ d.del = "none"
-NoTasks(hs) == \A n \in hs : ~Replicates(Decide27(n, hs, {}, {}))
- \* a check "replicates" when it hands the replicator a task with at least one candidate node. (With overlapping
-\* rules the code as found keeps calling the replicator with an EMPTY candidate list: a holder remembered from
-\* an earlier rule does not lower the shortage of a later rule - a phantom shortage that copies nothing.)
-Replicates(d) == \E k \in 1..Len(d.tasks) : Len(d.tasks[k].nodes) > 0
-Quiet(hs) == \A n \in hs : LET d == Decide27(n, hs, {}, {}) IN ~Replicates(d) /\ d.del = "none"
-NoTasks(hs) == \A n \in hs : ~Replicates(Decide27(n, hs, {}, {}))
- \* a check "replicates" when it hands the replicator a task with at least one candidate node. (With overlapping
-\* rules the code as found keeps calling the replicator with an EMPTY candidate list: a holder remembered from
-\* an earlier rule does not lower the shortage of a later rule - a phantom shortage that copies nothing.)
-Replicates(d) == \E k \in 1..Len(d.tasks) : Len(d.tasks[k].nodes) > 0
-Quiet(hs) == \A n \in hs : LET d == Decide27(n, hs, {}, {}) IN ~Replicates(d) /\ d.del = "none"
-NoTasks(hs) == \A n \in hs : ~Replicates(Decide27(n, hs, {}, {}))
- \* a check "replicates" when it hands the replicator a task with at least one candidate node. (With overlapping
-\* rules the code as found keeps calling the replicator with an EMPTY candidate list: a holder remembered from
-\* an earlier rule does not lower the shortage of a later rule - a phantom shortage that copies nothing.)
-Replicates(d) == \E k \in 1..Len(d.tasks) : Len(d.tasks[k].nodes) > 0
-Quiet(hs) == \A n \in hs : LET d == Decide27(n, hs, {}, {}) IN ~Replicates(d) /\ d.del = "none"
-NoTasks(hs) == \A n \in hs : ~Replicates(Decide27(n, hs, {}, {}))
- \* a check "replicates" when it hands the replicator a task with at least one candidate node. (With overlapping
-\* rules the code as found keeps calling the replicator with an EMPTY candidate list: a holder remembered from
-\* an earlier rule does not lower the shortage of a later rule - a phantom shortage that copies nothing.)
-Replicates(d) == \E k \in 1..Len(d.tasks) : Len(d.tasks[k].nodes) > 0
-Quiet(hs) == \A n \in hs : LET d == Decide27(n, hs, {}, {}) IN ~Replicates(d) /\ d.del = "none"
-NoTasks(hs) == \A n \in hs : ~Replicates(Decide27(n, hs, {}, {}))
- \* a check "replicates" when it hands the replicator a task with at least one candidate node. (With overlapping
-\* rules the code as found keeps calling the replicator with an EMPTY candidate list: a holder remembered from
-\* an earlier rule does not lower the shortage of a later rule - a phantom shortage that copies nothing.)
-Replicates(d) == \E k \in 1..Len(d.tasks) : Len(d.tasks[k].nodes) > 0
-Quiet(hs) == \A n \in hs : LET d == Decide27(n, hs, {}, {}) IN ~Replicates(d) /\ d.del = "none"
-NoTasks(hs) == \A n \in hs : ~Replicates(Decide27(n, hs, {}, {}))
- \* a check "replicates" when it hands the replicator a task with at least one candidate node. (With overlapping
-\* rules the code as found keeps calling the replicator with an EMPTY candidate list: a holder remembered from
-\* an earlier rule does not lower the shortage of a later rule - a phantom shortage that copies nothing.)
-Replicates(d) == \E k \in 1..Len(d.tasks) : Len(d.tasks[k].nodes) > 0
-Quiet(hs) == \A n \in hs : LET d == Decide27(n, hs, {}, {}) IN ~Replicates(d) /\ d.del = "none"
-NoTasks(hs) == \A n \in hs : ~Replicates(Decide27(n, hs, {}, {}))
- \* a check "replicates" when it hands the replicator a task with at least one candidate node. (With overlapping
-\* rules the code as found keeps calling the replicator with an EMPTY candidate list: a holder remembered from
-\* an earlier rule does not lower the shortage of a later rule - a phantom shortage that copies nothing.)
-Replicates(d) == \E k \in 1..Len(d.tasks) : Len(d.tasks[k].nodes) > 0
-Quiet(hs) == \A n \in hs : LET d == Decide27(n, hs, {}, {}) IN ~Replicates(d) /\ d.del = "none"
-NoTasks(hs) == \A n \in hs : ~Replicates(Decide27(n, hs, {}, {}))
- \* a check "replicates" when it hands the replicator a task with at least one candidate node. (With overlapping
-\* rules the code as found keeps calling the replicator with an EMPTY candidate list: a holder remembered from
-\* an earlier rule does not lower the shortage of a later rule - a phantom shortage that copies nothing.)
-Replicates(d) == \E k \in 1..Len(d.tasks) : Len(d.tasks[k].nodes) > 0
-Quiet(hs) == \A n \in hs : LET d == Decide27(n, hs, {}, {}) IN ~Replicates(d) /\ d.del = "none"
-NoTasks(hs) == \A n \in hs : ~Replicates(Decide27(n, hs, {}, {}))
- \* a check "replicates" when it hands the replicator a task with at least one candidate node. (With overlapping
-\* rules the code as found keeps calling the replicator with an EMPTY candidate list: a holder remembered from
-\* an earlier rule does not lower the shortage of a later rule - a phantom shortage that copies nothing.)
-Replicates(d) == \E k \in 1..Len(d.tasks) : Len(d.tasks[k].nodes) > 0
-Quiet(hs) == \A n \in hs : LET d == Decide27(n, hs, {}, {}) IN ~Replicates(d) /\ d.del = "none"
-NoTasks(hs) == \A n \in hs : ~Replicates(Decide27(n, hs, {}, {}))
- \* a check "replicates" when it hands the replicator a task with at least one candidate node. (With overlapping
-\* rules the code as found keeps calling the replicator with an EMPTY candidate list: a holder remembered from
-\* an earlier rule does not lower the shortage of a later rule - a phantom shortage that copies nothing.)
-Replicates(d) == \E k \in 1..Len(d.tasks) : Len(d.tasks[k].nodes) > 0
-Quiet(hs) == \A n \in hs : LET d == Decide27(n, hs, {}, {}) IN ~Replicates(d) /\ d.del = "none"
-NoTasks(hs) == \A n \in hs : ~Replicates(Decide27(n, hs, {}, {}))
- \* a check "replicates" when it hands the replicator a task with at least one candidate node. (With overlapping
-\* rules the code as found keeps calling the replicator with an EMPTY candidate list: a holder remembered from
-\* an earlier rule does not lower the shortage of a later rule - a phantom shortage that copies nothing.)
-Replicates(d) == \E k \in 1..Len(d.tasks) : Len(d.tasks[k].nodes) > 0
-Quiet(hs) == \A n \in hs : LET d == Decide27(n, hs, {}, {}) IN ~Replicates(d) /\ d.del = "none"
-NoTasks(hs) == \A n \in hs : ~Replicates(Decide27(n, hs, {}, {}))
-E\* a check "replicates" when it hands the replicator a task with at least one candidate node. (With overlapping
-\* rules the code as found keeps calling the replicator with an EMPTY candidate list: a holder remembered from
-\* an earlier rule does not lower the shortage of a later rule - a phantom shortage that copies nothing.)
-Replicates(d) == \E k \in 1..Len(d.tasks) : Len(d.tasks[k].nodes) > 0
-Quiet(hs) == \A n \in hs : LET d == Decide27(n, hs, {}, {}) IN ~Replicates(d) /\ d.del = "none"
-NoTasks(hs) == \A n \in hs : ~Replicates(Decide27(n, hs, {}, {}))
-L\* a check "replicates" when it hands the replicator a task with at least one candidate node. (With overlapping
-\* rules the code as found keeps calling the replicator with an EMPTY candidate list: a holder remembered from
-\* an earlier rule does not lower the shortage of a later rule - a phantom shortage that copies nothing.)
-Replicates(d) == \E k \in 1..Len(d.tasks) : Len(d.tasks[k].nodes) > 0
-Quiet(hs) == \A n \in hs : LET d == Decide27(n, hs, {}, {}) IN ~Replicates(d) /\ d.del = "none"
-NoTasks(hs) == \A n \in hs : ~Replicates(Decide27(n, hs, {}, {}))
-S\* a check "replicates" when it hands the replicator a task with at least one candidate node. (With overlapping
-\* rules the code as found keeps calling the replicator with an EMPTY candidate list: a holder remembered from
-\* an earlier rule does not lower the shortage of a later rule - a phantom shortage that copies nothing.)
-Replicates(d) == \E k \in 1..Len(d.tasks) : Len(d.tasks[k].nodes) > 0
-Quiet(hs) == \A n \in hs : LET d == Decide27(n, hs, {}, {}) IN ~Replicates(d) /\ d.del = "none"
-NoTasks(hs) == \A n \in hs : ~Replicates(Decide27(n, hs, {}, {}))
-E\* a check "replicates" when it hands the replicator a task with at least one candidate node. (With overlapping
-\* rules the code as found keeps calling the replicator with an EMPTY candidate list: a holder remembered from
-\* an earlier rule does not lower the shortage of a later rule - a phantom shortage that copies nothing.)
-Replicates(d) == \E k \in 1..Len(d.tasks) : Len(d.tasks[k].nodes) > 0
-Quiet(hs) == \A n \in hs : LET d == Decide27(n, hs, {}, {}) IN ~Replicates(d) /\ d.del = "none"
-NoTasks(hs) == \A n \in hs : ~Replicates(Decide27(n, hs, {}, {}))
- \* a check "replicates" when it hands the replicator a task with at least one candidate node. (With overlapping
-\* rules the code as found keeps calling the replicator with an EMPTY candidate list: a holder remembered from
-\* an earlier rule does not lower the shortage of a later rule - a phantom shortage that copies nothing.)
-Replicates(d) == \E k \in 1..Len(d.tasks) : Len(d.tasks[k].nodes) > 0
-Quiet(hs) == \A n \in hs : LET d == Decide27(n, hs, {}, {}) IN ~Replicates(d) /\ d.del = "none"
-NoTasks(hs) == \A n \in hs : ~Replicates(Decide27(n, hs, {}, {}))
-I\* a check "replicates" when it hands the replicator a task with at least one candidate node. (With overlapping
-\* rules the code as found keeps calling the replicator with an EMPTY candidate list: a holder remembered from
-\* an earlier rule does not lower the shortage of a later rule - a phantom shortage that copies nothing.)
-Replicates(d) == \E k \in 1..Len(d.tasks) : Len(d.tasks[k].nodes) > 0
-Quiet(hs) == \A n \in hs : LET d == Decide27(n, hs, {}, {}) IN ~Replicates(d) /\ d.del = "none"
-NoTasks(hs) == \A n \in hs : ~Replicates(Decide27(n, hs, {}, {}))
-F\* a check "replicates" when it hands the replicator a task with at least one candidate node. (With overlapping
-\* rules the code as found keeps calling the replicator with an EMPTY candidate list: a holder remembered from
-\* an earlier rule does not lower the shortage of a later rule - a phantom shortage that copies nothing.)
-Replicates(d) == \E k \in 1..Len(d.tasks) : Len(d.tasks[k].nodes) > 0
-Quiet(hs) == \A n \in hs : LET d == Decide27(n, hs, {}, {}) IN ~Replicates(d) /\ d.del = "none"
-NoTasks(hs) == \A n \in hs : ~Replicates(Decide27(n, hs, {}, {}))
- \* a check "replicates" when it hands the replicator a task with at least one candidate node. (With overlapping
-\* rules the code as found keeps calling the replicator with an EMPTY candidate list: a holder remembered from
-\* an earlier rule does not lower the shortage of a later rule - a phantom shortage that copies nothing.)
-Replicates(d) == \E k \in 1..Len(d.tasks) : Len(d.tasks[k].nodes) > 0
-Quiet(hs) == \A n \in hs : LET d == Decide27(n, hs, {}, {}) IN ~Replicates(d) /\ d.del = "none"
-NoTasks(hs) == \A n \in hs : ~Replicates(Decide27(n, hs, {}, {}))
-S\* a check "replicates" when it hands the replicator a task with at least one candidate node. (With overlapping
-\* rules the code as found keeps calling the replicator with an EMPTY candidate list: a holder remembered from
-\* an earlier rule does not lower the shortage of a later rule - a phantom shortage that copies nothing.)
-Replicates(d) == \E k \in 1..Len(d.tasks) : Len(d.tasks[k].nodes) > 0
-Quiet(hs) == \A n \in hs : LET d == Decide27(n, hs, {}, {}) IN ~Replicates(d) /\ d.del = "none"
-NoTasks(hs) == \A n \in hs : ~Replicates(Decide27(n, hs, {}, {}))
-w\* a check "replicates" when it hands the replicator a task with at least one candidate node. (With overlapping
-\* rules the code as found keeps calling the replicator with an EMPTY candidate list: a holder remembered from
-\* an earlier rule does not lower the shortage of a later rule - a phantom shortage that copies nothing.)
-Replicates(d) == \E k \in 1..Len(d.tasks) : Len(d.tasks[k].nodes) > 0
-Quiet(hs) == \A n \in hs : LET d == Decide27(n, hs, {}, {}) IN ~Replicates(d) /\ d.del = "none"
-NoTasks(hs) == \A n \in hs : ~Replicates(Decide27(n, hs, {}, {}))
-a\* a check "replicates" when it hands the replicator a task with at least one candidate node. (With overlapping
-\* rules the code as found keeps calling the replicator with an EMPTY candidate list: a holder remembered from
-\* an earlier rule does not lower the shortage of a later rule - a phantom shortage that copies nothing.)
-Replicates(d) == \E k \in 1..Len(d.tasks) : Len(d.tasks[k].nodes) > 0
-Quiet(hs) == \A n \in hs : LET d == Decide27(n, hs, {}, {}) IN ~Replicates(d) /\ d.del = "none"
-NoTasks(hs) == \A n \in hs : ~Replicates(Decide27(n, hs, {}, {}))
-p\* a check "replicates" when it hands the replicator a task with at least one candidate node. (With overlapping
-\* rules the code as found keeps calling the replicator with an EMPTY candidate list: a holder remembered from
-\* an earlier rule does not lower the shortage of a later rule - a phantom shortage that copies nothing.)
-Replicates(d) == \E k \in 1..Len(d.tasks) : Len(d.tasks[k].nodes) > 0
-Quiet(hs) == \A n \in hs : LET d == Decide27(n, hs, {}, {}) IN ~Replicates(d) /\ d.del = "none"
-NoTasks(hs) == \A n \in hs : ~Replicates(Decide27(n, hs, {}, {}))
-(\* a check "replicates" when it hands the replicator a task with at least one candidate node. (With overlapping
-\* rules the code as found keeps calling the replicator with an EMPTY candidate list: a holder remembered from
-\* an earlier rule does not lower the shortage of a later rule - a phantom shortage that copies nothing.)
-Replicates(d) == \E k \in 1..Len(d.tasks) : Len(d.tasks[k].nodes) > 0
-Quiet(hs) == \A n \in hs : LET d == Decide27(n, hs, {}, {}) IN ~Replicates(d) /\ d.del = "none"
-NoTasks(hs) == \A n \in hs : ~Replicates(Decide27(n, hs, {}, {}))
-n\* a check "replicates" when it hands the replicator a task with at least one candidate node. (With overlapping
-\* rules the code as found keeps calling the replicator with an EMPTY candidate list: a holder remembered from
-\* an earlier rule does not lower the shortage of a later rule - a phantom shortage that copies nothing.)
-Replicates(d) == \E k \in 1..Len(d.tasks) : Len(d.tasks[k].nodes) > 0
-Quiet(hs) == \A n \in hs : LET d == Decide27(n, hs, {}, {}) IN ~Replicates(d) /\ d.del = "none"
-NoTasks(hs) == \A n \in hs : ~Replicates(Decide27(n, hs, {}, {}))
-,\* a check "replicates" when it hands the replicator a task with at least one candidate node. (With overlapping
-\* rules the code as found keeps calling the replicator with an EMPTY candidate list: a holder remembered from
-\* an earlier rule does not lower the shortage of a later rule - a phantom shortage that copies nothing.)
-Replicates(d) == \E k \in 1..Len(d.tasks) : Len(d.tasks[k].nodes) > 0
-Quiet(hs) == \A n \in hs : LET d == Decide27(n, hs, {}, {}) IN ~Replicates(d) /\ d.del = "none"
-NoTasks(hs) == \A n \in hs : ~Replicates(Decide27(n, hs, {}, {}))
- \* a check "replicates" when it hands the replicator a task with at least one candidate node. (With overlapping
-\* rules the code as found keeps calling the replicator with an EMPTY candidate list: a holder remembered from
-\* an earlier rule does not lower the shortage of a later rule - a phantom shortage that copies nothing.)
-Replicates(d) == \E k \in 1..Len(d.tasks) : Len(d.tasks[k].nodes) > 0
-Quiet(hs) == \A n \in hs : LET d == Decide27(n, hs, {}, {}) IN ~Replicates(d) /\ d.del = "none"
-NoTasks(hs) == \A n \in hs : ~Replicates(Decide27(n, hs, {}, {}))
-x\* a check "replicates" when it hands the replicator a task with at least one candidate node. (With overlapping
-\* rules the code as found keeps calling the replicator with an EMPTY candidate list: a holder remembered from
-\* an earlier rule does not lower the shortage of a later rule - a phantom shortage that copies nothing.)
-Replicates(d) == \E k \in 1..Len(d.tasks) : Len(d.tasks[k].nodes) > 0
-Quiet(hs) == \A n \in hs : LET d == Decide27(n, hs, {}, {}) IN ~Replicates(d) /\ d.del = "none"
-NoTasks(hs) == \A n \in hs : ~Replicates(Decide27(n, hs, {}, {}))
-)\* a check "replicates" when it hands the replicator a task with at least one candidate node. (With overlapping
-\* rules the code as found keeps calling the replicator with an EMPTY candidate list: a holder remembered from
-\* an earlier rule does not lower the shortage of a later rule - a phantom shortage that copies nothing.)
-Replicates(d) == \E k \in 1..Len(d.tasks) : Len(d.tasks[k].nodes) > 0
-Quiet(hs) == \A n \in hs : LET d == Decide27(n, hs, {}, {}) IN ~Replicates(d) /\ d.del = "none"
-NoTasks(hs) == \A n \in hs : ~Replicates(Decide27(n, hs, {}, {}))
- \* a check "replicates" when it hands the replicator a task with at least one candidate node. (With overlapping
-\* rules the code as found keeps calling the replicator with an EMPTY candidate list: a holder remembered from
-\* an earlier rule does not lower the shortage of a later rule - a phantom shortage that copies nothing.)
-Replicates(d) == \E k \in 1..Len(d.tasks) : Len(d.tasks[k].nodes) > 0
-Quiet(hs) == \A n \in hs : LET d == Decide27(n, hs, {}, {}) IN ~Replicates(d) /\ d.del = "none"
-NoTasks(hs) == \A n \in hs : ~Replicates(Decide27(n, hs, {}, {}))
-\\* a check "replicates" when it hands the replicator a task with at least one candidate node. (With overlapping
-\* rules the code as found keeps calling the replicator with an EMPTY candidate list: a holder remembered from
-\* an earlier rule does not lower the shortage of a later rule - a phantom shortage that copies nothing.)
-Replicates(d) == \E k \in 1..Len(d.tasks) : Len(d.tasks[k].nodes) > 0
-Quiet(hs) == \A n \in hs : LET d == Decide27(n, hs, {}, {}) IN ~Replicates(d) /\ d.del = "none"
-NoTasks(hs) == \A n \in hs : ~Replicates(Decide27(n, hs, {}, {}))
-i\* a check "replicates" when it hands the replicator a task with at least one candidate node. (With overlapping
-\* rules the code as found keeps calling the replicator with an EMPTY candidate list: a holder remembered from
-\* an earlier rule does not lower the shortage of a later rule - a phantom shortage that copies nothing.)
-Replicates(d) == \E k \in 1..Len(d.tasks) : Len(d.tasks[k].nodes) > 0
-Quiet(hs) == \A n \in hs : LET d == Decide27(n, hs, {}, {}) IN ~Replicates(d) /\ d.del = "none"
-NoTasks(hs) == \A n \in hs : ~Replicates(Decide27(n, hs, {}, {}))
-n\* a check "replicates" when it hands the replicator a task with at least one candidate node. (With overlapping
-\* rules the code as found keeps calling the replicator with an EMPTY candidate list: a holder remembered from
-\* an earlier rule does not lower the shortage of a later rule - a phantom shortage that copies nothing.)
-Replicates(d) == \E k \in 1..Len(d.tasks) : Len(d.tasks[k].nodes) > 0
-Quiet(hs) == \A n \in hs : LET d == Decide27(n, hs, {}, {}) IN ~Replicates(d) /\ d.del = "none"
-NoTasks(hs) == \A n \in hs : ~Replicates(Decide27(n, hs, {}, {}))
- \* a check "replicates" when it hands the replicator a task with at least one candidate node. (With overlapping
-\* rules the code as found keeps calling the replicator with an EMPTY candidate list: a holder remembered from
-\* an earlier rule does not lower the shortage of a later rule - a phantom shortage that copies nothing.)
-Replicates(d) == \E k \in 1..Len(d.tasks) : Len(d.tasks[k].nodes) > 0
-Quiet(hs) == \A n \in hs : LET d == Decide27(n, hs, {}, {}) IN ~Replicates(d) /\ d.del = "none"
-NoTasks(hs) == \A n \in hs : ~Replicates(Decide27(n, hs, {}, {}))
-r\* a check "replicates" when it hands the replicator a task with at least one candidate node. (With overlapping
-\* rules the code as found keeps calling the replicator with an EMPTY candidate list: a holder remembered from
-\* an earlier rule does not lower the shortage of a later rule - a phantom shortage that copies nothing.)
-Replicates(d) == \E k \in 1..Len(d.tasks) : Len(d.tasks[k].nodes) > 0
-Quiet(hs) == \A n \in hs : LET d == Decide27(n, hs, {}, {}) IN ~Replicates(d) /\ d.del = "none"
-NoTasks(hs) == \A n \in hs : ~Replicates(Decide27(n, hs, {}, {}))
-e\* a check "replicates" when it hands the replicator a task with at least one candidate node. (With overlapping
-\* rules the code as found keeps calling the replicator with an EMPTY candidate list: a holder remembered from
-\* an earlier rule does not lower the shortage of a later rule - a phantom shortage that copies nothing.)
-Replicates(d) == \E k \in 1..Len(d.tasks) : Len(d.tasks[k].nodes) > 0
-Quiet(hs) == \A n \in hs : LET d == Decide27(n, hs, {}, {}) IN ~Replicates(d) /\ d.del = "none"
-NoTasks(hs) == \A n \in hs : ~Replicates(Decide27(n, hs, {}, {}))
-f\* a check "replicates" when it hands the replicator a task with at least one candidate node. (With overlapping
-\* rules the code as found keeps calling the replicator with an EMPTY candidate list: a holder remembered from
-\* an earlier rule does not lower the shortage of a later rule - a phantom shortage that copies nothing.)
-Replicates(d) == \E k \in 1..Len(d.tasks) : Len(d.tasks[k].nodes) > 0
-Quiet(hs) == \A n \in hs : LET d == Decide27(n, hs, {}, {}) IN ~Replicates(d) /\ d.del = "none"
-NoTasks(hs) == \A n \in hs : ~Replicates(Decide27(n, hs, {}, {}))
-u\* a check "replicates" when it hands the replicator a task with at least one candidate node. (With overlapping
-\* rules the code as found keeps calling the replicator with an EMPTY candidate list: a holder remembered from
-\* an earlier rule does not lower the shortage of a later rule - a phantom shortage that copies nothing.)
-Replicates(d) == \E k \in 1..Len(d.tasks) : Len(d.tasks[k].nodes) > 0
-Quiet(hs) == \A n \in hs : LET d == Decide27(n, hs, {}, {}) IN ~Replicates(d) /\ d.del = "none"
-NoTasks(hs) == \A n \in hs : ~Replicates(Decide27(n, hs, {}, {}))
-s\* a check "replicates" when it hands the replicator a task with at least one candidate node. (With overlapping
-\* rules the code as found keeps calling the replicator with an EMPTY candidate list: a holder remembered from
-\* an earlier rule does not lower the shortage of a later rule - a phantom shortage that copies nothing.)
-Replicates(d) == \E k \in 1..Len(d.tasks) : Len(d.tasks[k].nodes) > 0
-Quiet(hs) == \A n \in hs : LET d == Decide27(n, hs, {}, {}) IN ~Replicates(d) /\ d.del = "none"
-NoTasks(hs) == \A n \in hs : ~Replicates(Decide27(n, hs, {}, {}))
-e\* a check "replicates" when it hands the replicator a task with at least one candidate node. (With overlapping
-\* rules the code as found keeps calling the replicator with an EMPTY candidate list: a holder remembered from
-\* an earlier rule does not lower the shortage of a later rule - a phantom shortage that copies nothing.)
-Replicates(d) == \E k \in 1..Len(d.tasks) : Len(d.tasks[k].nodes) > 0
-Quiet(hs) == \A n \in hs : LET d == Decide27(n, hs, {}, {}) IN ~Replicates(d) /\ d.del = "none"
-NoTasks(hs) == \A n \in hs : ~Replicates(Decide27(n, hs, {}, {}))
- \* a check "replicates" when it hands the replicator a task with at least one candidate node. (With overlapping
-\* rules the code as found keeps calling the replicator with an EMPTY candidate list: a holder remembered from
-\* an earlier rule does not lower the shortage of a later rule - a phantom shortage that copies nothing.)
-Replicates(d) == \E k \in 1..Len(d.tasks) : Len(d.tasks[k].nodes) > 0
-Quiet(hs) == \A n \in hs : LET d == Decide27(n, hs, {}, {}) IN ~Replicates(d) /\ d.del = "none"
-NoTasks(hs) == \A n \in hs : ~Replicates(Decide27(n, hs, {}, {}))
-T\* a check "replicates" when it hands the replicator a task with at least one candidate node. (With overlapping
-\* rules the code as found keeps calling the replicator with an EMPTY candidate list: a holder remembered from
-\* an earlier rule does not lower the shortage of a later rule - a phantom shortage that copies nothing.)
-Replicates(d) == \E k \in 1..Len(d.tasks) : Len(d.tasks[k].nodes) > 0
-Quiet(hs) == \A n \in hs : LET d == Decide27(n, hs, {}, {}) IN ~Replicates(d) /\ d.del = "none"
-NoTasks(hs) == \A n \in hs : ~Replicates(Decide27(n, hs, {}, {}))
-H\* a check "replicates" when it hands the replicator a task with at least one candidate node. (With overlapping
-\* rules the code as found keeps calling the replicator with an EMPTY candidate list: a holder remembered from
-\* an earlier rule does not lower the shortage of a later rule - a phantom shortage that copies nothing.)
-Replicates(d) == \E k \in 1..Len(d.tasks) : Len(d.tasks[k].nodes) > 0
-Quiet(hs) == \A n \in hs : LET d == Decide27(n, hs, {}, {}) IN ~Replicates(d) /\ d.del = "none"
-NoTasks(hs) == \A n \in hs : ~Replicates(Decide27(n, hs, {}, {}))
-E\* a check "replicates" when it hands the replicator a task with at least one candidate node. (With overlapping
-\* rules the code as found keeps calling the replicator with an EMPTY candidate list: a holder remembered from
-\* an earlier rule does not lower the shortage of a later rule - a phantom shortage that copies nothing.)
-Replicates(d) == \E k \in 1..Len(d.tasks) : Len(d.tasks[k].nodes) > 0
-Quiet(hs) == \A n \in hs : LET d == Decide27(n, hs, {}, {}) IN ~Replicates(d) /\ d.del = "none"
-NoTasks(hs) == \A n \in hs : ~Replicates(Decide27(n, hs, {}, {}))
-N\* a check "replicates" when it hands the replicator a task with at least one candidate node. (With overlapping
-\* rules the code as found keeps calling the replicator with an EMPTY candidate list: a holder remembered from
-\* an earlier rule does not lower the shortage of a later rule - a phantom shortage that copies nothing.)
-Replicates(d) == \E k \in 1..Len(d.tasks) : Len(d.tasks[k].nodes) > 0
-Quiet(hs) == \A n \in hs : LET d == Decide27(n, hs, {}, {}) IN ~Replicates(d) /\ d.del = "none"
-NoTasks(hs) == \A n \in hs : ~Replicates(Decide27(n, hs, {}, {}))
- \* a check "replicates" when it hands the replicator a task with at least one candidate node. (With overlapping
-\* rules the code as found keeps calling the replicator with an EMPTY candidate list: a holder remembered from
-\* an earlier rule does not lower the shortage of a later rule - a phantom shortage that copies nothing.)
-Replicates(d) == \E k \in 1..Len(d.tasks) : Len(d.tasks[k].nodes) > 0
-Quiet(hs) == \A n \in hs : LET d == Decide27(n, hs, {}, {}) IN ~Replicates(d) /\ d.del = "none"
-NoTasks(hs) == \A n \in hs : ~Replicates(Decide27(n, hs, {}, {}))
-"\* a check "replicates" when it hands the replicator a task with at least one candidate node. (With overlapping
-\* rules the code as found keeps calling the replicator with an EMPTY candidate list: a holder remembered from
-\* an earlier rule does not lower the shortage of a later rule - a phantom shortage that copies nothing.)
-Replicates(d) == \E k \in 1..Len(d.tasks) : Len(d.tasks[k].nodes) > 0
-Quiet(hs) == \A n \in hs : LET d == Decide27(n, hs, {}, {}) IN ~Replicates(d) /\ d.del = "none"
-NoTasks(hs) == \A n \in hs : ~Replicates(Decide27(n, hs, {}, {}))
-n\* a check "replicates" when it hands the replicator a task with at least one candidate node. (With overlapping
-\* rules the code as found keeps calling the replicator with an EMPTY candidate list: a holder remembered from
-\* an earlier rule does not lower the shortage of a later rule - a phantom shortage that copies nothing.)
-Replicates(d) == \E k \in 1..Len(d.tasks) : Len(d.tasks[k].nodes) > 0
-Quiet(hs) == \A n \in hs : LET d == Decide27(n, hs, {}, {}) IN ~Replicates(d) /\ d.del = "none"
-NoTasks(hs) == \A n \in hs : ~Replicates(Decide27(n, hs, {}, {}))
-f\* a check "replicates" when it hands the replicator a task with at least one candidate node. (With overlapping
-\* rules the code as found keeps calling the replicator with an EMPTY candidate list: a holder remembered from
-\* an earlier rule does not lower the shortage of a later rule - a phantom shortage that copies nothing.)
-Replicates(d) == \E k \in 1..Len(d.tasks) : Len(d.tasks[k].nodes) > 0
-Quiet(hs) == \A n \in hs : LET d == Decide27(n, hs, {}, {}) IN ~Replicates(d) /\ d.del = "none"
-NoTasks(hs) == \A n \in hs : ~Replicates(Decide27(n, hs, {}, {}))
-F\* a check "replicates" when it hands the replicator a task with at least one candidate node. (With overlapping
-\* rules the code as found keeps calling the replicator with an EMPTY candidate list: a holder remembered from
-\* an earlier rule does not lower the shortage of a later rule - a phantom shortage that copies nothing.)
-Replicates(d) == \E k \in 1..Len(d.tasks) : Len(d.tasks[k].nodes) > 0
-Quiet(hs) == \A n \in hs : LET d == Decide27(n, hs, {}, {}) IN ~Replicates(d) /\ d.del = "none"
-NoTasks(hs) == \A n \in hs : ~Replicates(Decide27(n, hs, {}, {}))
-a\* a check "replicates" when it hands the replicator a task with at least one candidate node. (With overlapping
-\* rules the code as found keeps calling the replicator with an EMPTY candidate list: a holder remembered from
-\* an earlier rule does not lower the shortage of a later rule - a phantom shortage that copies nothing.)
-Replicates(d) == \E k \in 1..Len(d.tasks) : Len(d.tasks[k].nodes) > 0
-Quiet(hs) == \A n \in hs : LET d == Decide27(n, hs, {}, {}) IN ~Replicates(d) /\ d.del = "none"
-NoTasks(hs) == \A n \in hs : ~Replicates(Decide27(n, hs, {}, {}))
-i\* a check "replicates" when it hands the replicator a task with at least one candidate node. (With overlapping
-\* rules the code as found keeps calling the replicator with an EMPTY candidate list: a holder remembered from
-\* an earlier rule does not lower the shortage of a later rule - a phantom shortage that copies nothing.)
-Replicates(d) == \E k \in 1..Len(d.tasks) : Len(d.tasks[k].nodes) > 0
-Quiet(hs) == \A n \in hs : LET d == Decide27(n, hs, {}, {}) IN ~Replicates(d) /\ d.del = "none"
-NoTasks(hs) == \A n \in hs : ~Replicates(Decide27(n, hs, {}, {}))
-l\* a check "replicates" when it hands the replicator a task with at least one candidate node. (With overlapping
-\* rules the code as found keeps calling the replicator with an EMPTY candidate list: a holder remembered from
-\* an earlier rule does not lower the shortage of a later rule - a phantom shortage that copies nothing.)
-Replicates(d) == \E k \in 1..Len(d.tasks) : Len(d.tasks[k].nodes) > 0
-Quiet(hs) == \A n \in hs : LET d == Decide27(n, hs, {}, {}) IN ~Replicates(d) /\ d.del = "none"
-NoTasks(hs) == \A n \in hs : ~Replicates(Decide27(n, hs, {}, {}))
-"\* a check "replicates" when it hands the replicator a task with at least one candidate node. (With overlapping
-\* rules the code as found keeps calling the replicator with an EMPTY candidate list: a holder remembered from
-\* an earlier rule does not lower the shortage of a later rule - a phantom shortage that copies nothing.)
-Replicates(d) == \E k \in 1..Len(d.tasks) : Len(d.tasks[k].nodes) > 0
-Quiet(hs) == \A n \in hs : LET d == Decide27(n, hs, {}, {}) IN ~Replicates(d) /\ d.del = "none"
-NoTasks(hs) == \A n \in hs : ~Replicates(Decide27(n, hs, {}, {}))
- \* a check "replicates" when it hands the replicator a task with at least one candidate node. (With overlapping
-\* rules the code as found keeps calling the replicator with an EMPTY candidate list: a holder remembered from
-\* an earlier rule does not lower the shortage of a later rule - a phantom shortage that copies nothing.)
-Replicates(d) == \E k \in 1..Len(d.tasks) : Len(d.tasks[k].nodes) > 0
-Quiet(hs) == \A n \in hs : LET d == Decide27(n, hs, {}, {}) IN ~Replicates(d) /\ d.del = "none"
-NoTasks(hs) == \A n \in hs : ~Replicates(Decide27(n, hs, {}, {}))
-E\* a check "replicates" when it hands the replicator a task with at least one candidate node. (With overlapping
-\* rules the code as found keeps calling the replicator with an EMPTY candidate list: a holder remembered from
-\* an earlier rule does not lower the shortage of a later rule - a phantom shortage that copies nothing.)
-Replicates(d) == \E k \in 1..Len(d.tasks) : Len(d.tasks[k].nodes) > 0
-Quiet(hs) == \A n \in hs : LET d == Decide27(n, hs, {}, {}) IN ~Replicates(d) /\ d.del = "none"
-NoTasks(hs) == \A n \in hs : ~Replicates(Decide27(n, hs, {}, {}))
-L\* a check "replicates" when it hands the replicator a task with at least one candidate node. (With overlapping
-\* rules the code as found keeps calling the replicator with an EMPTY candidate list: a holder remembered from
-\* an earlier rule does not lower the shortage of a later rule - a phantom shortage that copies nothing.)
-Replicates(d) == \E k \in 1..Len(d.tasks) : Len(d.tasks[k].nodes) > 0
-Quiet(hs) == \A n \in hs : LET d == Decide27(n, hs, {}, {}) IN ~Replicates(d) /\ d.del = "none"
-NoTasks(hs) == \A n \in hs : ~Replicates(Decide27(n, hs, {}, {}))
-S\* a check "replicates" when it hands the replicator a task with at least one candidate node. (With overlapping
-\* rules the code as found keeps calling the replicator with an EMPTY candidate list: a holder remembered from
-\* an earlier rule does not lower the shortage of a later rule - a phantom shortage that copies nothing.)
-Replicates(d) == \E k \in 1..Len(d.tasks) : Len(d.tasks[k].nodes) > 0
-Quiet(hs) == \A n \in hs : LET d == Decide27(n, hs, {}, {}) IN ~Replicates(d) /\ d.del = "none"
-NoTasks(hs) == \A n \in hs : ~Replicates(Decide27(n, hs, {}, {}))
-E\* a check "replicates" when it hands the replicator a task with at least one candidate node. (With overlapping
-\* rules the code as found keeps calling the replicator with an EMPTY candidate list: a holder remembered from
-\* an earlier rule does not lower the shortage of a later rule - a phantom shortage that copies nothing.)
-Replicates(d) == \E k \in 1..Len(d.tasks) : Len(d.tasks[k].nodes) > 0
-Quiet(hs) == \A n \in hs : LET d == Decide27(n, hs, {}, {}) IN ~Replicates(d) /\ d.del = "none"
-NoTasks(hs) == \A n \in hs : ~Replicates(Decide27(n, hs, {}, {}))
- \* a check "replicates" when it hands the replicator a task with at least one candidate node. (With overlapping
-\* rules the code as found keeps calling the replicator with an EMPTY candidate list: a holder remembered from
-\* an earlier rule does not lower the shortage of a later rule - a phantom shortage that copies nothing.)
-Replicates(d) == \E k \in 1..Len(d.tasks) : Len(d.tasks[k].nodes) > 0
-Quiet(hs) == \A n \in hs : LET d == Decide27(n, hs, {}, {}) IN ~Replicates(d) /\ d.del = "none"
-NoTasks(hs) == \A n \in hs : ~Replicates(Decide27(n, hs, {}, {}))
-"\* a check "replicates" when it hands the replicator a task with at least one candidate node. (With overlapping
-\* rules the code as found keeps calling the replicator with an EMPTY candidate list: a holder remembered from
-\* an earlier rule does not lower the shortage of a later rule - a phantom shortage that copies nothing.)
-Replicates(d) == \E k \in 1..Len(d.tasks) : Len(d.tasks[k].nodes) > 0
-Quiet(hs) == \A n \in hs : LET d == Decide27(n, hs, {}, {}) IN ~Replicates(d) /\ d.del = "none"
-NoTasks(hs) == \A n \in hs : ~Replicates(Decide27(n, hs, {}, {}))
-n\* a check "replicates" when it hands the replicator a task with at least one candidate node. (With overlapping
-\* rules the code as found keeps calling the replicator with an EMPTY candidate list: a holder remembered from
-\* an earlier rule does not lower the shortage of a later rule - a phantom shortage that copies nothing.)
-Replicates(d) == \E k \in 1..Len(d.tasks) : Len(d.tasks[k].nodes) > 0
-Quiet(hs) == \A n \in hs : LET d == Decide27(n, hs, {}, {}) IN ~Replicates(d) /\ d.del = "none"
-NoTasks(hs) == \A n \in hs : ~Replicates(Decide27(n, hs, {}, {}))
-f\* a check "replicates" when it hands the replicator a task with at least one candidate node. (With overlapping
-\* rules the code as found keeps calling the replicator with an EMPTY candidate list: a holder remembered from
-\* an earlier rule does not lower the shortage of a later rule - a phantom shortage that copies nothing.)
-Replicates(d) == \E k \in 1..Len(d.tasks) : Len(d.tasks[k].nodes) > 0
-Quiet(hs) == \A n \in hs : LET d == Decide27(n, hs, {}, {}) IN ~Replicates(d) /\ d.del = "none"
-NoTasks(hs) == \A n \in hs : ~Replicates(Decide27(n, hs, {}, {}))
-O\* a check "replicates" when it hands the replicator a task with at least one candidate node. (With overlapping
-\* rules the code as found keeps calling the replicator with an EMPTY candidate list: a holder remembered from
-\* an earlier rule does not lower the shortage of a later rule - a phantom shortage that copies nothing.)
-Replicates(d) == \E k \in 1..Len(d.tasks) : Len(d.tasks[k].nodes) > 0
-Quiet(hs) == \A n \in hs : LET d == Decide27(n, hs, {}, {}) IN ~Replicates(d) /\ d.del = "none"
-NoTasks(hs) == \A n \in hs : ~Replicates(Decide27(n, hs, {}, {}))
-k\* a check "replicates" when it hands the replicator a task with at least one candidate node. (With overlapping
-\* rules the code as found keeps calling the replicator with an EMPTY candidate list: a holder remembered from
-\* an earlier rule does not lower the shortage of a later rule - a phantom shortage that copies nothing.)
-Replicates(d) == \E k \in 1..Len(d.tasks) : Len(d.tasks[k].nodes) > 0
-Quiet(hs) == \A n \in hs : LET d == Decide27(n, hs, {}, {}) IN ~Replicates(d) /\ d.del = "none"
-NoTasks(hs) == \A n \in hs : ~Replicates(Decide27(n, hs, {}, {}))
-"\* a check "replicates" when it hands the replicator a task with at least one candidate node. (With overlapping
-\* rules the code as found keeps calling the replicator with an EMPTY candidate list: a holder remembered from
-\* an earlier rule does not lower the shortage of a later rule - a phantom shortage that copies nothing.)
-Replicates(d) == \E k \in 1..Len(d.tasks) : Len(d.tasks[k].nodes) > 0
-Quiet(hs) == \A n \in hs : LET d == Decide27(n, hs, {}, {}) IN ~Replicates(d) /\ d.del = "none"
-NoTasks(hs) == \A n \in hs : ~Replicates(Decide27(n, hs, {}, {}))
-]\* a check "replicates" when it hands the replicator a task with at least one candidate node. (With overlapping
-\* rules the code as found keeps calling the replicator with an EMPTY candidate list: a holder remembered from
-\* an earlier rule does not lower the shortage of a later rule - a phantom shortage that copies nothing.)
-Replicates(d) == \E k \in 1..Len(d.tasks) : Len(d.tasks[k].nodes) > 0
-Quiet(hs) == \A n \in hs : LET d == Decide27(n, hs, {}, {}) IN ~Replicates(d) /\ d.del = "none"
-NoTasks(hs) == \A n \in hs : ~Replicates(Decide27(n, hs, {}, {}))
-]\* a check "replicates" when it hands the replicator a task with at least one candidate node. (With overlapping
-\* rules the code as found keeps calling the replicator with an EMPTY candidate list: a holder remembered from
-\* an earlier rule does not lower the shortage of a later rule - a phantom shortage that copies nothing.)
-Replicates(d) == \E k \in 1..Len(d.tasks) : Len(d.tasks[k].nodes) > 0
-Quiet(hs) == \A n \in hs : LET d == Decide27(n, hs, {}, {}) IN ~Replicates(d) /\ d.del = "none"
-NoTasks(hs) == \A n \in hs : ~Replicates(Decide27(n, hs, {}, {}))
-
-\* a check "replicates" when it hands the replicator a task with at least one candidate node. (With overlapping
-\* rules the code as found keeps calling the replicator with an EMPTY candidate list: a holder remembered from
-\* an earlier rule does not lower the shortage of a later rule - a phantom shortage that copies nothing.)
-Replicates(d) == \E k \in 1..Len(d.tasks) : Len(d.tasks[k].nodes) > 0
-Quiet(hs) == \A n \in hs : LET d == Decide27(n, hs, {}, {}) IN ~Replicates(d) /\ d.del = "none"
-NoTasks(hs) == \A n \in hs : ~Replicates(Decide27(n, hs, {}, {}))
-
-\* a check "replicates" when it hands the replicator a task with at least one candidate node. (With overlapping
-\* rules the code as found keeps calling the replicator with an EMPTY candidate list: a holder remembered from
-\* an earlier rule does not lower the shortage of a later rule - a phantom shortage that copies nothing.)
-Replicates(d) == \E k \in 1..Len(d.tasks) : Len(d.tasks[k].nodes) > 0
-Quiet(hs) == \A n \in hs : LET d == Decide27(n, hs, {}, {}) IN ~Replicates(d) /\ d.del = "none"
-NoTasks(hs) == \A n \in hs : ~Replicates(Decide27(n, hs, {}, {}))
-M\* a check "replicates" when it hands the replicator a task with at least one candidate node. (With overlapping
-\* rules the code as found keeps calling the replicator with an EMPTY candidate list: a holder remembered from
-\* an earlier rule does not lower the shortage of a later rule - a phantom shortage that copies nothing.)
-Replicates(d) == \E k \in 1..Len(d.tasks) : Len(d.tasks[k].nodes) > 0
-Quiet(hs) == \A n \in hs : LET d == Decide27(n, hs, {}, {}) IN ~Replicates(d) /\ d.del = "none"
-NoTasks(hs) == \A n \in hs : ~Replicates(Decide27(n, hs, {}, {}))
-a\* a check "replicates" when it hands the replicator a task with at least one candidate node. (With overlapping
-\* rules the code as found keeps calling the replicator with an EMPTY candidate list: a holder remembered from
-\* an earlier rule does not lower the shortage of a later rule - a phantom shortage that copies nothing.)
-Replicates(d) == \E k \in 1..Len(d.tasks) : Len(d.tasks[k].nodes) > 0
-Quiet(hs) == \A n \in hs : LET d == Decide27(n, hs, {}, {}) IN ~Replicates(d) /\ d.del = "none"
-NoTasks(hs) == \A n \in hs : ~Replicates(Decide27(n, hs, {}, {}))
-p\* a check "replicates" when it hands the replicator a task with at least one candidate node. (With overlapping
-\* rules the code as found keeps calling the replicator with an EMPTY candidate list: a holder remembered from
-\* an earlier rule does not lower the shortage of a later rule - a phantom shortage that copies nothing.)
-Replicates(d) == \E k \in 1..Len(d.tasks) : Len(d.tasks[k].nodes) > 0
-Quiet(hs) == \A n \in hs : LET d == Decide27(n, hs, {}, {}) IN ~Replicates(d) /\ d.del = "none"
-NoTasks(hs) == \A n \in hs : ~Replicates(Decide27(n, hs, {}, {}))
-S\* a check "replicates" when it hands the replicator a task with at least one candidate node. (With overlapping
-\* rules the code as found keeps calling the replicator with an EMPTY candidate list: a holder remembered from
-\* an earlier rule does not lower the shortage of a later rule - a phantom shortage that copies nothing.)
-Replicates(d) == \E k \in 1..Len(d.tasks) : Len(d.tasks[k].nodes) > 0
-Quiet(hs) == \A n \in hs : LET d == Decide27(n, hs, {}, {}) IN ~Replicates(d) /\ d.del = "none"
-NoTasks(hs) == \A n \in hs : ~Replicates(Decide27(n, hs, {}, {}))
-e\* a check "replicates" when it hands the replicator a task with at least one candidate node. (With overlapping
-\* rules the code as found keeps calling the replicator with an EMPTY candidate list: a holder remembered from
-\* an earlier rule does not lower the shortage of a later rule - a phantom shortage that copies nothing.)
-Replicates(d) == \E k \in 1..Len(d.tasks) : Len(d.tasks[k].nodes) > 0
-Quiet(hs) == \A n \in hs : LET d == Decide27(n, hs, {}, {}) IN ~Replicates(d) /\ d.del = "none"
-NoTasks(hs) == \A n \in hs : ~Replicates(Decide27(n, hs, {}, {}))
-q\* a check "replicates" when it hands the replicator a task with at least one candidate node. (With overlapping
-\* rules the code as found keeps calling the replicator with an EMPTY candidate list: a holder remembered from
-\* an earlier rule does not lower the shortage of a later rule - a phantom shortage that copies nothing.)
-Replicates(d) == \E k \in 1..Len(d.tasks) : Len(d.tasks[k].nodes) > 0
-Quiet(hs) == \A n \in hs : LET d == Decide27(n, hs, {}, {}) IN ~Replicates(d) /\ d.del = "none"
-NoTasks(hs) == \A n \in hs : ~Replicates(Decide27(n, hs, {}, {}))
-(\* a check "replicates" when it hands the replicator a task with at least one candidate node. (With overlapping
-\* rules the code as found keeps calling the replicator with an EMPTY candidate list: a holder remembered from
-\* an earlier rule does not lower the shortage of a later rule - a phantom shortage that copies nothing.)
-Replicates(d) == \E k \in 1..Len(d.tasks) : Len(d.tasks[k].nodes) > 0
-Quiet(hs) == \A n \in hs : LET d == Decide27(n, hs, {}, {}) IN ~Replicates(d) /\ d.del = "none"
-NoTasks(hs) == \A n \in hs : ~Replicates(Decide27(n, hs, {}, {}))
-n\* a check "replicates" when it hands the replicator a task with at least one candidate node. (With overlapping
-\* rules the code as found keeps calling the replicator with an EMPTY candidate list: a holder remembered from
-\* an earlier rule does not lower the shortage of a later rule - a phantom shortage that copies nothing.)
-Replicates(d) == \E k \in 1..Len(d.tasks) : Len(d.tasks[k].nodes) > 0
-Quiet(hs) == \A n \in hs : LET d == Decide27(n, hs, {}, {}) IN ~Replicates(d) /\ d.del = "none"
-NoTasks(hs) == \A n \in hs : ~Replicates(Decide27(n, hs, {}, {}))
-,\* a check "replicates" when it hands the replicator a task with at least one candidate node. (With overlapping
-\* rules the code as found keeps calling the replicator with an EMPTY candidate list: a holder remembered from
-\* an earlier rule does not lower the shortage of a later rule - a phantom shortage that copies nothing.)
-Replicates(d) == \E k \in 1..Len(d.tasks) : Len(d.tasks[k].nodes) > 0
-Quiet(hs) == \A n \in hs : LET d == Decide27(n, hs, {}, {}) IN ~Replicates(d) /\ d.del = "none"
-NoTasks(hs) == \A n \in hs : ~Replicates(Decide27(n, hs, {}, {}))
- \* a check "replicates" when it hands the replicator a task with at least one candidate node. (With overlapping
-\* rules the code as found keeps calling the replicator with an EMPTY candidate list: a holder remembered from
-\* an earlier rule does not lower the shortage of a later rule - a phantom shortage that copies nothing.)
-Replicates(d) == \E k \in 1..Len(d.tasks) : Len(d.tasks[k].nodes) > 0
-Quiet(hs) == \A n \in hs : LET d == Decide27(n, hs, {}, {}) IN ~Replicates(d) /\ d.del = "none"
-NoTasks(hs) == \A n \in hs : ~Replicates(Decide27(n, hs, {}, {}))
-q\* a check "replicates" when it hands the replicator a task with at least one candidate node. (With overlapping
-\* rules the code as found keeps calling the replicator with an EMPTY candidate list: a holder remembered from
-\* an earlier rule does not lower the shortage of a later rule - a phantom shortage that copies nothing.)
-Replicates(d) == \E k \in 1..Len(d.tasks) : Len(d.tasks[k].nodes) > 0
-Quiet(hs) == \A n \in hs : LET d == Decide27(n, hs, {}, {}) IN ~Replicates(d) /\ d.del = "none"
-NoTasks(hs) == \A n \in hs : ~Replicates(Decide27(n, hs, {}, {}))
-)\* a check "replicates" when it hands the replicator a task with at least one candidate node. (With overlapping
-\* rules the code as found keeps calling the replicator with an EMPTY candidate list: a holder remembered from
-\* an earlier rule does not lower the shortage of a later rule - a phantom shortage that copies nothing.)
-Replicates(d) == \E k \in 1..Len(d.tasks) : Len(d.tasks[k].nodes) > 0
-Quiet(hs) == \A n \in hs : LET d == Decide27(n, hs, {}, {}) IN ~Replicates(d) /\ d.del = "none"
-NoTasks(hs) == \A n \in hs : ~Replicates(Decide27(n, hs, {}, {}))
- \* a check "replicates" when it hands the replicator a task with at least one candidate node. (With overlapping
-\* rules the code as found keeps calling the replicator with an EMPTY candidate list: a holder remembered from
-\* an earlier rule does not lower the shortage of a later rule - a phantom shortage that copies nothing.)
-Replicates(d) == \E k \in 1..Len(d.tasks) : Len(d.tasks[k].nodes) > 0
-Quiet(hs) == \A n \in hs : LET d == Decide27(n, hs, {}, {}) IN ~Replicates(d) /\ d.del = "none"
-NoTasks(hs) == \A n \in hs : ~Replicates(Decide27(n, hs, {}, {}))
-=\* a check "replicates" when it hands the replicator a task with at least one candidate node. (With overlapping
-\* rules the code as found keeps calling the replicator with an EMPTY candidate list: a holder remembered from
-\* an earlier rule does not lower the shortage of a later rule - a phantom shortage that copies nothing.)
-Replicates(d) == \E k \in 1..Len(d.tasks) : Len(d.tasks[k].nodes) > 0
-Quiet(hs) == \A n \in hs : LET d == Decide27(n, hs, {}, {}) IN ~Replicates(d) /\ d.del = "none"
-NoTasks(hs) == \A n \in hs : ~Replicates(Decide27(n, hs, {}, {}))
-=\* a check "replicates" when it hands the replicator a task with at least one candidate node. (With overlapping
-\* rules the code as found keeps calling the replicator with an EMPTY candidate list: a holder remembered from
-\* an earlier rule does not lower the shortage of a later rule - a phantom shortage that copies nothing.)
-Replicates(d) == \E k \in 1..Len(d.tasks) : Len(d.tasks[k].nodes) > 0
-Quiet(hs) == \A n \in hs : LET d == Decide27(n, hs, {}, {}) IN ~Replicates(d) /\ d.del = "none"
-NoTasks(hs) == \A n \in hs : ~Replicates(Decide27(n, hs, {}, {}))
- \* a check "replicates" when it hands the replicator a task with at least one candidate node. (With overlapping
-\* rules the code as found keeps calling the replicator with an EMPTY candidate list: a holder remembered from
-\* an earlier rule does not lower the shortage of a later rule - a phantom shortage that copies nothing.)
-Replicates(d) == \E k \in 1..Len(d.tasks) : Len(d.tasks[k].nodes) > 0
-Quiet(hs) == \A n \in hs : LET d == Decide27(n, hs, {}, {}) IN ~Replicates(d) /\ d.del = "none"
-NoTasks(hs) == \A n \in hs : ~Replicates(Decide27(n, hs, {}, {}))
-[\* a check "replicates" when it hands the replicator a task with at least one candidate node. (With overlapping
-\* rules the code as found keeps calling the replicator with an EMPTY candidate list: a holder remembered from
-\* an earlier rule does not lower the shortage of a later rule - a phantom shortage that copies nothing.)
-Replicates(d) == \E k \in 1..Len(d.tasks) : Len(d.tasks[k].nodes) > 0
-Quiet(hs) == \A n \in hs : LET d == Decide27(n, hs, {}, {}) IN ~Replicates(d) /\ d.del = "none"
-NoTasks(hs) == \A n \in hs : ~Replicates(Decide27(n, hs, {}, {}))
-i\* a check "replicates" when it hands the replicator a task with at least one candidate node. (With overlapping
-\* rules the code as found keeps calling the replicator with an EMPTY candidate list: a holder remembered from
-\* an earlier rule does not lower the shortage of a later rule - a phantom shortage that copies nothing.)
-Replicates(d) == \E k \in 1..Len(d.tasks) : Len(d.tasks[k].nodes) > 0
-Quiet(hs) == \A n \in hs : LET d == Decide27(n, hs, {}, {}) IN ~Replicates(d) /\ d.del = "none"
-NoTasks(hs) == \A n \in hs : ~Replicates(Decide27(n, hs, {}, {}))
-x\* a check "replicates" when it hands the replicator a task with at least one candidate node. (With overlapping
-\* rules the code as found keeps calling the replicator with an EMPTY candidate list: a holder remembered from
-\* an earlier rule does not lower the shortage of a later rule - a phantom shortage that copies nothing.)
-Replicates(d) == \E k \in 1..Len(d.tasks) : Len(d.tasks[k].nodes) > 0
-Quiet(hs) == \A n \in hs : LET d == Decide27(n, hs, {}, {}) IN ~Replicates(d) /\ d.del = "none"
-NoTasks(hs) == \A n \in hs : ~Replicates(Decide27(n, hs, {}, {}))
- \* a check "replicates" when it hands the replicator a task with at least one candidate node. (With overlapping
-\* rules the code as found keeps calling the replicator with an EMPTY candidate list: a holder remembered from
-\* an earlier rule does not lower the shortage of a later rule - a phantom shortage that copies nothing.)
-Replicates(d) == \E k \in 1..Len(d.tasks) : Len(d.tasks[k].nodes) > 0
-Quiet(hs) == \A n \in hs : LET d == Decide27(n, hs, {}, {}) IN ~Replicates(d) /\ d.del = "none"
-NoTasks(hs) == \A n \in hs : ~Replicates(Decide27(n, hs, {}, {}))
-\\* a check "replicates" when it hands the replicator a task with at least one candidate node. (With overlapping
-\* rules the code as found keeps calling the replicator with an EMPTY candidate list: a holder remembered from
-\* an earlier rule does not lower the shortage of a later rule - a phantom shortage that copies nothing.)
-Replicates(d) == \E k \in 1..Len(d.tasks) : Len(d.tasks[k].nodes) > 0
-Quiet(hs) == \A n \in hs : LET d == Decide27(n, hs, {}, {}) IN ~Replicates(d) /\ d.del = "none"
-NoTasks(hs) == \A n \in hs : ~Replicates(Decide27(n, hs, {}, {}))
-i\* a check "replicates" when it hands the replicator a task with at least one candidate node. (With overlapping
-\* rules the code as found keeps calling the replicator with an EMPTY candidate list: a holder remembered from
-\* an earlier rule does not lower the shortage of a later rule - a phantom shortage that copies nothing.)
-Replicates(d) == \E k \in 1..Len(d.tasks) : Len(d.tasks[k].nodes) > 0
-Quiet(hs) == \A n \in hs : LET d == Decide27(n, hs, {}, {}) IN ~Replicates(d) /\ d.del = "none"
-NoTasks(hs) == \A n \in hs : ~Replicates(Decide27(n, hs, {}, {}))
-n\* a check "replicates" when it hands the replicator a task with at least one candidate node. (With overlapping
-\* rules the code as found keeps calling the replicator with an EMPTY candidate list: a holder remembered from
-\* an earlier rule does not lower the shortage of a later rule - a phantom shortage that copies nothing.)
-Replicates(d) == \E k \in 1..Len(d.tasks) : Len(d.tasks[k].nodes) > 0
-Quiet(hs) == \A n \in hs : LET d == Decide27(n, hs, {}, {}) IN ~Replicates(d) /\ d.del = "none"
-NoTasks(hs) == \A n \in hs : ~Replicates(Decide27(n, hs, {}, {}))
- \* a check "replicates" when it hands the replicator a task with at least one candidate node. (With overlapping
-\* rules the code as found keeps calling the replicator with an EMPTY candidate list: a holder remembered from
-\* an earlier rule does not lower the shortage of a later rule - a phantom shortage that copies nothing.)
-Replicates(d) == \E k \in 1..Len(d.tasks) : Len(d.tasks[k].nodes) > 0
-Quiet(hs) == \A n \in hs : LET d == Decide27(n, hs, {}, {}) IN ~Replicates(d) /\ d.del = "none"
-NoTasks(hs) == \A n \in hs : ~Replicates(Decide27(n, hs, {}, {}))
-1\* a check "replicates" when it hands the replicator a task with at least one candidate node. (With overlapping
-\* rules the code as found keeps calling the replicator with an EMPTY candidate list: a holder remembered from
-\* an earlier rule does not lower the shortage of a later rule - a phantom shortage that copies nothing.)
-Replicates(d) == \E k \in 1..Len(d.tasks) : Len(d.tasks[k].nodes) > 0
-Quiet(hs) == \A n \in hs : LET d == Decide27(n, hs, {}, {}) IN ~Replicates(d) /\ d.del = "none"
-NoTasks(hs) == \A n \in hs : ~Replicates(Decide27(n, hs, {}, {}))
-.\* a check "replicates" when it hands the replicator a task with at least one candidate node. (With overlapping
-\* rules the code as found keeps calling the replicator with an EMPTY candidate list: a holder remembered from
-\* an earlier rule does not lower the shortage of a later rule - a phantom shortage that copies nothing.)
-Replicates(d) == \E k \in 1..Len(d.tasks) : Len(d.tasks[k].nodes) > 0
-Quiet(hs) == \A n \in hs : LET d == Decide27(n, hs, {}, {}) IN ~Replicates(d) /\ d.del = "none"
-NoTasks(hs) == \A n \in hs : ~Replicates(Decide27(n, hs, {}, {}))
-.\* a check "replicates" when it hands the replicator a task with at least one candidate node. (With overlapping
-\* rules the code as found keeps calling the replicator with an EMPTY candidate list: a holder remembered from
-\* an earlier rule does not lower the shortage of a later rule - a phantom shortage that copies nothing.)
-Replicates(d) == \E k \in 1..Len(d.tasks) : Len(d.tasks[k].nodes) > 0
-Quiet(hs) == \A n \in hs : LET d == Decide27(n, hs, {}, {}) IN ~Replicates(d) /\ d.del = "none"
-NoTasks(hs) == \A n \in hs : ~Replicates(Decide27(n, hs, {}, {}))
-L\* a check "replicates" when it hands the replicator a task with at least one candidate node. (With overlapping
-\* rules the code as found keeps calling the replicator with an EMPTY candidate list: a holder remembered from
-\* an earlier rule does not lower the shortage of a later rule - a phantom shortage that copies nothing.)
-Replicates(d) == \E k \in 1..Len(d.tasks) : Len(d.tasks[k].nodes) > 0
-Quiet(hs) == \A n \in hs : LET d == Decide27(n, hs, {}, {}) IN ~Replicates(d) /\ d.del = "none"
-NoTasks(hs) == \A n \in hs : ~Replicates(Decide27(n, hs, {}, {}))
-e\* a check "replicates" when it hands the replicator a task with at least one candidate node. (With overlapping
-\* rules the code as found keeps calling the replicator with an EMPTY candidate list: a holder remembered from
-\* an earlier rule does not lower the shortage of a later rule - a phantom shortage that copies nothing.)
-Replicates(d) == \E k \in 1..Len(d.tasks) : Len(d.tasks[k].nodes) > 0
-Quiet(hs) == \A n \in hs : LET d == Decide27(n, hs, {}, {}) IN ~Replicates(d) /\ d.del = "none"
-NoTasks(hs) == \A n \in hs : ~Replicates(Decide27(n, hs, {}, {}))
-n\* a check "replicates" when it hands the replicator a task with at least one candidate node. (With overlapping
-\* rules the code as found keeps calling the replicator with an EMPTY candidate list: a holder remembered from
-\* an earlier rule does not lower the shortage of a later rule - a phantom shortage that copies nothing.)
-Replicates(d) == \E k \in 1..Len(d.tasks) : Len(d.tasks[k].nodes) > 0
-Quiet(hs) == \A n \in hs : LET d == Decide27(n, hs, {}, {}) IN ~Replicates(d) /\ d.del = "none"
-NoTasks(hs) == \A n \in hs : ~Replicates(Decide27(n, hs, {}, {}))
-(\* a check "replicates" when it hands the replicator a task with at least one candidate node. (With overlapping
-\* rules the code as found keeps calling the replicator with an EMPTY candidate list: a holder remembered from
-\* an earlier rule does not lower the shortage of a later rule - a phantom shortage that copies nothing.)
-Replicates(d) == \E k \in 1..Len(d.tasks) : Len(d.tasks[k].nodes) > 0
-Quiet(hs) == \A n \in hs : LET d == Decide27(n, hs, {}, {}) IN ~Replicates(d) /\ d.del = "none"
-NoTasks(hs) == \A n \in hs : ~Replicates(Decide27(n, hs, {}, {}))
-q\* a check "replicates" when it hands the replicator a task with at least one candidate node. (With overlapping
-\* rules the code as found keeps calling the replicator with an EMPTY candidate list: a holder remembered from
-\* an earlier rule does not lower the shortage of a later rule - a phantom shortage that copies nothing.)
-Replicates(d) == \E k \in 1..Len(d.tasks) : Len(d.tasks[k].nodes) > 0
-Quiet(hs) == \A n \in hs : LET d == Decide27(n, hs, {}, {}) IN ~Replicates(d) /\ d.del = "none"
-NoTasks(hs) == \A n \in hs : ~Replicates(Decide27(n, hs, {}, {}))
-)\* a check "replicates" when it hands the replicator a task with at least one candidate node. (With overlapping
-\* rules the code as found keeps calling the replicator with an EMPTY candidate list: a holder remembered from
-\* an earlier rule does not lower the shortage of a later rule - a phantom shortage that copies nothing.)
-Replicates(d) == \E k \in 1..Len(d.tasks) : Len(d.tasks[k].nodes) > 0
-Quiet(hs) == \A n \in hs : LET d == Decide27(n, hs, {}, {}) IN ~Replicates(d) /\ d.del = "none"
-NoTasks(hs) == \A n \in hs : ~Replicates(Decide27(n, hs, {}, {}))
- \* a check "replicates" when it hands the replicator a task with at least one candidate node. (With overlapping
-\* rules the code as found keeps calling the replicator with an EMPTY candidate list: a holder remembered from
-\* an earlier rule does not lower the shortage of a later rule - a phantom shortage that copies nothing.)
-Replicates(d) == \E k \in 1..Len(d.tasks) : Len(d.tasks[k].nodes) > 0
-Quiet(hs) == \A n \in hs : LET d == Decide27(n, hs, {}, {}) IN ~Replicates(d) /\ d.del = "none"
-NoTasks(hs) == \A n \in hs : ~Replicates(Decide27(n, hs, {}, {}))
-|\* a check "replicates" when it hands the replicator a task with at least one candidate node. (With overlapping
-\* rules the code as found keeps calling the replicator with an EMPTY candidate list: a holder remembered from
-\* an earlier rule does not lower the shortage of a later rule - a phantom shortage that copies nothing.)
-Replicates(d) == \E k \in 1..Len(d.tasks) : Len(d.tasks[k].nodes) > 0
-Quiet(hs) == \A n \in hs : LET d == Decide27(n, hs, {}, {}) IN ~Replicates(d) /\ d.del = "none"
-NoTasks(hs) == \A n \in hs : ~Replicates(Decide27(n, hs, {}, {}))
--\* a check "replicates" when it hands the replicator a task with at least one candidate node. (With overlapping
-\* rules the code as found keeps calling the replicator with an EMPTY candidate list: a holder remembered from
-\* an earlier rule does not lower the shortage of a later rule - a phantom shortage that copies nothing.)
-Replicates(d) == \E k \in 1..Len(d.tasks) : Len(d.tasks[k].nodes) > 0
-Quiet(hs) == \A n \in hs : LET d == Decide27(n, hs, {}, {}) IN ~Replicates(d) /\ d.del = "none"
-NoTasks(hs) == \A n \in hs : ~Replicates(Decide27(n, hs, {}, {}))
->\* a check "replicates" when it hands the replicator a task with at least one candidate node. (With overlapping
-\* rules the code as found keeps calling the replicator with an EMPTY candidate list: a holder remembered from
-\* an earlier rule does not lower the shortage of a later rule - a phantom shortage that copies nothing.)
-Replicates(d) == \E k \in 1..Len(d.tasks) : Len(d.tasks[k].nodes) > 0
-Quiet(hs) == \A n \in hs : LET d == Decide27(n, hs, {}, {}) IN ~Replicates(d) /\ d.del = "none"
-NoTasks(hs) == \A n \in hs : ~Replicates(Decide27(n, hs, {}, {}))
- \* a check "replicates" when it hands the replicator a task with at least one candidate node. (With overlapping
-\* rules the code as found keeps calling the replicator with an EMPTY candidate list: a holder remembered from
-\* an earlier rule does not lower the shortage of a later rule - a phantom shortage that copies nothing.)
-Replicates(d) == \E k \in 1..Len(d.tasks) : Len(d.tasks[k].nodes) > 0
-Quiet(hs) == \A n \in hs : LET d == Decide27(n, hs, {}, {}) IN ~Replicates(d) /\ d.del = "none"
-NoTasks(hs) == \A n \in hs : ~Replicates(Decide27(n, hs, {}, {}))
-S\* a check "replicates" when it hands the replicator a task with at least one candidate node. (With overlapping
-\* rules the code as found keeps calling the replicator with an EMPTY candidate list: a holder remembered from
-\* an earlier rule does not lower the shortage of a later rule - a phantom shortage that copies nothing.)
-Replicates(d) == \E k \in 1..Len(d.tasks) : Len(d.tasks[k].nodes) > 0
-Quiet(hs) == \A n \in hs : LET d == Decide27(n, hs, {}, {}) IN ~Replicates(d) /\ d.del = "none"
-NoTasks(hs) == \A n \in hs : ~Replicates(Decide27(n, hs, {}, {}))
-w\* a check "replicates" when it hands the replicator a task with at least one candidate node. (With overlapping
-\* rules the code as found keeps calling the replicator with an EMPTY candidate list: a holder remembered from
-\* an earlier rule does not lower the shortage of a later rule - a phantom shortage that copies nothing.)
-Replicates(d) == \E k \in 1..Len(d.tasks) : Len(d.tasks[k].nodes) > 0
-Quiet(hs) == \A n \in hs : LET d == Decide27(n, hs, {}, {}) IN ~Replicates(d) /\ d.del = "none"
-NoTasks(hs) == \A n \in hs : ~Replicates(Decide27(n, hs, {}, {}))
-a\* a check "replicates" when it hands the replicator a task with at least one candidate node. (With overlapping
-\* rules the code as found keeps calling the replicator with an EMPTY candidate list: a holder remembered from
-\* an earlier rule does not lower the shortage of a later rule - a phantom shortage that copies nothing.)
-Replicates(d) == \E k \in 1..Len(d.tasks) : Len(d.tasks[k].nodes) > 0
-Quiet(hs) == \A n \in hs : LET d == Decide27(n, hs, {}, {}) IN ~Replicates(d) /\ d.del = "none"
-NoTasks(hs) == \A n \in hs : ~Replicates(Decide27(n, hs, {}, {}))
-p\* a check "replicates" when it hands the replicator a task with at least one candidate node. (With overlapping
-\* rules the code as found keeps calling the replicator with an EMPTY candidate list: a holder remembered from
-\* an earlier rule does not lower the shortage of a later rule - a phantom shortage that copies nothing.)
-Replicates(d) == \E k \in 1..Len(d.tasks) : Len(d.tasks[k].nodes) > 0
-Quiet(hs) == \A n \in hs : LET d == Decide27(n, hs, {}, {}) IN ~Replicates(d) /\ d.del = "none"
-NoTasks(hs) == \A n \in hs : ~Replicates(Decide27(n, hs, {}, {}))
-(\* a check "replicates" when it hands the replicator a task with at least one candidate node. (With overlapping
-\* rules the code as found keeps calling the replicator with an EMPTY candidate list: a holder remembered from
-\* an earlier rule does not lower the shortage of a later rule - a phantom shortage that copies nothing.)
-Replicates(d) == \E k \in 1..Len(d.tasks) : Len(d.tasks[k].nodes) > 0
-Quiet(hs) == \A n \in hs : LET d == Decide27(n, hs, {}, {}) IN ~Replicates(d) /\ d.del = "none"
-NoTasks(hs) == \A n \in hs : ~Replicates(Decide27(n, hs, {}, {}))
-n\* a check "replicates" when it hands the replicator a task with at least one candidate node. (With overlapping
-\* rules the code as found keeps calling the replicator with an EMPTY candidate list: a holder remembered from
-\* an earlier rule does not lower the shortage of a later rule - a phantom shortage that copies nothing.)
-Replicates(d) == \E k \in 1..Len(d.tasks) : Len(d.tasks[k].nodes) > 0
-Quiet(hs) == \A n \in hs : LET d == Decide27(n, hs, {}, {}) IN ~Replicates(d) /\ d.del = "none"
-NoTasks(hs) == \A n \in hs : ~Replicates(Decide27(n, hs, {}, {}))
-,\* a check "replicates" when it hands the replicator a task with at least one candidate node. (With overlapping
-\* rules the code as found keeps calling the replicator with an EMPTY candidate list: a holder remembered from
-\* an earlier rule does not lower the shortage of a later rule - a phantom shortage that copies nothing.)
-Replicates(d) == \E k \in 1..Len(d.tasks) : Len(d.tasks[k].nodes) > 0
-Quiet(hs) == \A n \in hs : LET d == Decide27(n, hs, {}, {}) IN ~Replicates(d) /\ d.del = "none"
-NoTasks(hs) == \A n \in hs : ~Replicates(Decide27(n, hs, {}, {}))
- \* a check "replicates" when it hands the replicator a task with at least one candidate node. (With overlapping
-\* rules the code as found keeps calling the replicator with an EMPTY candidate list: a holder remembered from
-\* an earlier rule does not lower the shortage of a later rule - a phantom shortage that copies nothing.)
-Replicates(d) == \E k \in 1..Len(d.tasks) : Len(d.tasks[k].nodes) > 0
-Quiet(hs) == \A n \in hs : LET d == Decide27(n, hs, {}, {}) IN ~Replicates(d) /\ d.del = "none"
-NoTasks(hs) == \A n \in hs : ~Replicates(Decide27(n, hs, {}, {}))
-q\* a check "replicates" when it hands the replicator a task with at least one candidate node. (With overlapping
-\* rules the code as found keeps calling the replicator with an EMPTY candidate list: a holder remembered from
-\* an earlier rule does not lower the shortage of a later rule - a phantom shortage that copies nothing.)
-Replicates(d) == \E k \in 1..Len(d.tasks) : Len(d.tasks[k].nodes) > 0
-Quiet(hs) == \A n \in hs : LET d == Decide27(n, hs, {}, {}) IN ~Replicates(d) /\ d.del = "none"
-NoTasks(hs) == \A n \in hs : ~Replicates(Decide27(n, hs, {}, {}))
-[\* a check "replicates" when it hands the replicator a task with at least one candidate node. (With overlapping
-\* rules the code as found keeps calling the replicator with an EMPTY candidate list: a holder remembered from
-\* an earlier rule does not lower the shortage of a later rule - a phantom shortage that copies nothing.)
-Replicates(d) == \E k \in 1..Len(d.tasks) : Len(d.tasks[k].nodes) > 0
-Quiet(hs) == \A n \in hs : LET d == Decide27(n, hs, {}, {}) IN ~Replicates(d) /\ d.del = "none"
-NoTasks(hs) == \A n \in hs : ~Replicates(Decide27(n, hs, {}, {}))
-i\* a check "replicates" when it hands the replicator a task with at least one candidate node. (With overlapping
-\* rules the code as found keeps calling the replicator with an EMPTY candidate list: a holder remembered from
-\* an earlier rule does not lower the shortage of a later rule - a phantom shortage that copies nothing.)
-Replicates(d) == \E k \in 1..Len(d.tasks) : Len(d.tasks[k].nodes) > 0
-Quiet(hs) == \A n \in hs : LET d == Decide27(n, hs, {}, {}) IN ~Replicates(d) /\ d.del = "none"
-NoTasks(hs) == \A n \in hs : ~Replicates(Decide27(n, hs, {}, {}))
-x\* a check "replicates" when it hands the replicator a task with at least one candidate node. (With overlapping
-\* rules the code as found keeps calling the replicator with an EMPTY candidate list: a holder remembered from
-\* an earlier rule does not lower the shortage of a later rule - a phantom shortage that copies nothing.)
-Replicates(d) == \E k \in 1..Len(d.tasks) : Len(d.tasks[k].nodes) > 0
-Quiet(hs) == \A n \in hs : LET d == Decide27(n, hs, {}, {}) IN ~Replicates(d) /\ d.del = "none"
-NoTasks(hs) == \A n \in hs : ~Replicates(Decide27(n, hs, {}, {}))
-]\* a check "replicates" when it hands the replicator a task with at least one candidate node. (With overlapping
-\* rules the code as found keeps calling the replicator with an EMPTY candidate list: a holder remembered from
-\* an earlier rule does not lower the shortage of a later rule - a phantom shortage that copies nothing.)
-Replicates(d) == \E k \in 1..Len(d.tasks) : Len(d.tasks[k].nodes) > 0
-Quiet(hs) == \A n \in hs : LET d == Decide27(n, hs, {}, {}) IN ~Replicates(d) /\ d.del = "none"
-NoTasks(hs) == \A n \in hs : ~Replicates(Decide27(n, hs, {}, {}))
-)\* a check "replicates" when it hands the replicator a task with at least one candidate node. (With overlapping
-\* rules the code as found keeps calling the replicator with an EMPTY candidate list: a holder remembered from
-\* an earlier rule does not lower the shortage of a later rule - a phantom shortage that copies nothing.)
-Replicates(d) == \E k \in 1..Len(d.tasks) : Len(d.tasks[k].nodes) > 0
-Quiet(hs) == \A n \in hs : LET d == Decide27(n, hs, {}, {}) IN ~Replicates(d) /\ d.del = "none"
-NoTasks(hs) == \A n \in hs : ~Replicates(Decide27(n, hs, {}, {}))
-]\* a check "replicates" when it hands the replicator a task with at least one candidate node. (With overlapping
-\* rules the code as found keeps calling the replicator with an EMPTY candidate list: a holder remembered from
-\* an earlier rule does not lower the shortage of a later rule - a phantom shortage that copies nothing.)
-Replicates(d) == \E k \in 1..Len(d.tasks) : Len(d.tasks[k].nodes) > 0
-Quiet(hs) == \A n \in hs : LET d == Decide27(n, hs, {}, {}) IN ~Replicates(d) /\ d.del = "none"
-NoTasks(hs) == \A n \in hs : ~Replicates(Decide27(n, hs, {}, {}))
-
-\* a check "replicates" when it hands the replicator a task with at least one candidate node. (With overlapping
-\* rules the code as found keeps calling the replicator with an EMPTY candidate list: a holder remembered from
-\* an earlier rule does not lower the shortage of a later rule - a phantom shortage that copies nothing.)
-Replicates(d) == \E k \in 1..Len(d.tasks) : Len(d.tasks[k].nodes) > 0
-Quiet(hs) == \A n \in hs : LET d == Decide27(n, hs, {}, {}) IN ~Replicates(d) /\ d.del = "none"
-NoTasks(hs) == \A n \in hs : ~Replicates(Decide27(n, hs, {}, {}))
-\\* a check "replicates" when it hands the replicator a task with at least one candidate node. (With overlapping
-\* rules the code as found keeps calling the replicator with an EMPTY candidate list: a holder remembered from
-\* an earlier rule does not lower the shortage of a later rule - a phantom shortage that copies nothing.)
-Replicates(d) == \E k \in 1..Len(d.tasks) : Len(d.tasks[k].nodes) > 0
-Quiet(hs) == \A n \in hs : LET d == Decide27(n, hs, {}, {}) IN ~Replicates(d) /\ d.del = "none"
-NoTasks(hs) == \A n \in hs : ~Replicates(Decide27(n, hs, {}, {}))
-*\* a check "replicates" when it hands the replicator a task with at least one candidate node. (With overlapping
-\* rules the code as found keeps calling the replicator with an EMPTY candidate list: a holder remembered from
-\* an earlier rule does not lower the shortage of a later rule - a phantom shortage that copies nothing.)
-Replicates(d) == \E k \in 1..Len(d.tasks) : Len(d.tasks[k].nodes) > 0
-Quiet(hs) == \A n \in hs : LET d == Decide27(n, hs, {}, {}) IN ~Replicates(d) /\ d.del = "none"
-NoTasks(hs) == \A n \in hs : ~Replicates(Decide27(n, hs, {}, {}))
- \* a check "replicates" when it hands the replicator a task with at least one candidate node. (With overlapping
-\* rules the code as found keeps calling the replicator with an EMPTY candidate list: a holder remembered from
-\* an earlier rule does not lower the shortage of a later rule - a phantom shortage that copies nothing.)
-Replicates(d) == \E k \in 1..Len(d.tasks) : Len(d.tasks[k].nodes) > 0
-Quiet(hs) == \A n \in hs : LET d == Decide27(n, hs, {}, {}) IN ~Replicates(d) /\ d.del = "none"
-NoTasks(hs) == \A n \in hs : ~Replicates(Decide27(n, hs, {}, {}))
-d\* a check "replicates" when it hands the replicator a task with at least one candidate node. (With overlapping
-\* rules the code as found keeps calling the replicator with an EMPTY candidate list: a holder remembered from
-\* an earlier rule does not lower the shortage of a later rule - a phantom shortage that copies nothing.)
-Replicates(d) == \E k \in 1..Len(d.tasks) : Len(d.tasks[k].nodes) > 0
-Quiet(hs) == \A n \in hs : LET d == Decide27(n, hs, {}, {}) IN ~Replicates(d) /\ d.del = "none"
-NoTasks(hs) == \A n \in hs : ~Replicates(Decide27(n, hs, {}, {}))
-e\* a check "replicates" when it hands the replicator a task with at least one candidate node. (With overlapping
-\* rules the code as found keeps calling the replicator with an EMPTY candidate list: a holder remembered from
-\* an earlier rule does not lower the shortage of a later rule - a phantom shortage that copies nothing.)
-Replicates(d) == \E k \in 1..Len(d.tasks) : Len(d.tasks[k].nodes) > 0
-Quiet(hs) == \A n \in hs : LET d == Decide27(n, hs, {}, {}) IN ~Replicates(d) /\ d.del = "none"
-NoTasks(hs) == \A n \in hs : ~Replicates(Decide27(n, hs, {}, {}))
-c\* a check "replicates" when it hands the replicator a task with at least one candidate node. (With overlapping
-\* rules the code as found keeps calling the replicator with an EMPTY candidate list: a holder remembered from
-\* an earlier rule does not lower the shortage of a later rule - a phantom shortage that copies nothing.)
-Replicates(d) == \E k \in 1..Len(d.tasks) : Len(d.tasks[k].nodes) > 0
-Quiet(hs) == \A n \in hs : LET d == Decide27(n, hs, {}, {}) IN ~Replicates(d) /\ d.del = "none"
-NoTasks(hs) == \A n \in hs : ~Replicates(Decide27(n, hs, {}, {}))
-i\* a check "replicates" when it hands the replicator a task with at least one candidate node. (With overlapping
-\* rules the code as found keeps calling the replicator with an EMPTY candidate list: a holder remembered from
-\* an earlier rule does not lower the shortage of a later rule - a phantom shortage that copies nothing.)
-Replicates(d) == \E k \in 1..Len(d.tasks) : Len(d.tasks[k].nodes) > 0
-Quiet(hs) == \A n \in hs : LET d == Decide27(n, hs, {}, {}) IN ~Replicates(d) /\ d.del = "none"
-NoTasks(hs) == \A n \in hs : ~Replicates(Decide27(n, hs, {}, {}))
-s\* a check "replicates" when it hands the replicator a task with at least one candidate node. (With overlapping
-\* rules the code as found keeps calling the replicator with an EMPTY candidate list: a holder remembered from
-\* an earlier rule does not lower the shortage of a later rule - a phantom shortage that copies nothing.)
-Replicates(d) == \E k \in 1..Len(d.tasks) : Len(d.tasks[k].nodes) > 0
-Quiet(hs) == \A n \in hs : LET d == Decide27(n, hs, {}, {}) IN ~Replicates(d) /\ d.del = "none"
-NoTasks(hs) == \A n \in hs : ~Replicates(Decide27(n, hs, {}, {}))
-i\* a check "replicates" when it hands the replicator a task with at least one candidate node. (With overlapping
-\* rules the code as found keeps calling the replicator with an EMPTY candidate list: a holder remembered from
-\* an earlier rule does not lower the shortage of a later rule - a phantom shortage that copies nothing.)
-Replicates(d) == \E k \in 1..Len(d.tasks) : Len(d.tasks[k].nodes) > 0
-Quiet(hs) == \A n \in hs : LET d == Decide27(n, hs, {}, {}) IN ~Replicates(d) /\ d.del = "none"
-NoTasks(hs) == \A n \in hs : ~Replicates(Decide27(n, hs, {}, {}))
-o\* a check "replicates" when it hands the replicator a task with at least one candidate node. (With overlapping
-\* rules the code as found keeps calling the replicator with an EMPTY candidate list: a holder remembered from
-\* an earlier rule does not lower the shortage of a later rule - a phantom shortage that copies nothing.)
-Replicates(d) == \E k \in 1..Len(d.tasks) : Len(d.tasks[k].nodes) > 0
-Quiet(hs) == \A n \in hs : LET d == Decide27(n, hs, {}, {}) IN ~Replicates(d) /\ d.del = "none"
-NoTasks(hs) == \A n \in hs : ~Replicates(Decide27(n, hs, {}, {}))
-n\* a check "replicates" when it hands the replicator a task with at least one candidate node. (With overlapping
-\* rules the code as found keeps calling the replicator with an EMPTY candidate list: a holder remembered from
-\* an earlier rule does not lower the shortage of a later rule - a phantom shortage that copies nothing.)
-Replicates(d) == \E k \in 1..Len(d.tasks) : Len(d.tasks[k].nodes) > 0
-Quiet(hs) == \A n \in hs : LET d == Decide27(n, hs, {}, {}) IN ~Replicates(d) /\ d.del = "none"
-NoTasks(hs) == \A n \in hs : ~Replicates(Decide27(n, hs, {}, {}))
- \* a check "replicates" when it hands the replicator a task with at least one candidate node. (With overlapping
-\* rules the code as found keeps calling the replicator with an EMPTY candidate list: a holder remembered from
-\* an earlier rule does not lower the shortage of a later rule - a phantom shortage that copies nothing.)
-Replicates(d) == \E k \in 1..Len(d.tasks) : Len(d.tasks[k].nodes) > 0
-Quiet(hs) == \A n \in hs : LET d == Decide27(n, hs, {}, {}) IN ~Replicates(d) /\ d.del = "none"
-NoTasks(hs) == \A n \in hs : ~Replicates(Decide27(n, hs, {}, {}))
-o\* a check "replicates" when it hands the replicator a task with at least one candidate node. (With overlapping
-\* rules the code as found keeps calling the replicator with an EMPTY candidate list: a holder remembered from
-\* an earlier rule does not lower the shortage of a later rule - a phantom shortage that copies nothing.)
-Replicates(d) == \E k \in 1..Len(d.tasks) : Len(d.tasks[k].nodes) > 0
-Quiet(hs) == \A n \in hs : LET d == Decide27(n, hs, {}, {}) IN ~Replicates(d) /\ d.del = "none"
-NoTasks(hs) == \A n \in hs : ~Replicates(Decide27(n, hs, {}, {}))
-f\* a check "replicates" when it hands the replicator a task with at least one candidate node. (With overlapping
-\* rules the code as found keeps calling the replicator with an EMPTY candidate list: a holder remembered from
-\* an earlier rule does not lower the shortage of a later rule - a phantom shortage that copies nothing.)
-Replicates(d) == \E k \in 1..Len(d.tasks) : Len(d.tasks[k].nodes) > 0
-Quiet(hs) == \A n \in hs : LET d == Decide27(n, hs, {}, {}) IN ~Replicates(d) /\ d.del = "none"
-NoTasks(hs) == \A n \in hs : ~Replicates(Decide27(n, hs, {}, {}))
- \* a check "replicates" when it hands the replicator a task with at least one candidate node. (With overlapping
-\* rules the code as found keeps calling the replicator with an EMPTY candidate list: a holder remembered from
-\* an earlier rule does not lower the shortage of a later rule - a phantom shortage that copies nothing.)
-Replicates(d) == \E k \in 1..Len(d.tasks) : Len(d.tasks[k].nodes) > 0
-Quiet(hs) == \A n \in hs : LET d == Decide27(n, hs, {}, {}) IN ~Replicates(d) /\ d.del = "none"
-NoTasks(hs) == \A n \in hs : ~Replicates(Decide27(n, hs, {}, {}))
-n\* a check "replicates" when it hands the replicator a task with at least one candidate node. (With overlapping
-\* rules the code as found keeps calling the replicator with an EMPTY candidate list: a holder remembered from
-\* an earlier rule does not lower the shortage of a later rule - a phantom shortage that copies nothing.)
-Replicates(d) == \E k \in 1..Len(d.tasks) : Len(d.tasks[k].nodes) > 0
-Quiet(hs) == \A n \in hs : LET d == Decide27(n, hs, {}, {}) IN ~Replicates(d) /\ d.del = "none"
-NoTasks(hs) == \A n \in hs : ~Replicates(Decide27(n, hs, {}, {}))
-o\* a check "replicates" when it hands the replicator a task with at least one candidate node. (With overlapping
-\* rules the code as found keeps calling the replicator with an EMPTY candidate list: a holder remembered from
-\* an earlier rule does not lower the shortage of a later rule - a phantom shortage that copies nothing.)
-Replicates(d) == \E k \in 1..Len(d.tasks) : Len(d.tasks[k].nodes) > 0
-Quiet(hs) == \A n \in hs : LET d == Decide27(n, hs, {}, {}) IN ~Replicates(d) /\ d.del = "none"
-NoTasks(hs) == \A n \in hs : ~Replicates(Decide27(n, hs, {}, {}))
-d\* a check "replicates" when it hands the replicator a task with at least one candidate node. (With overlapping
-\* rules the code as found keeps calling the replicator with an EMPTY candidate list: a holder remembered from
-\* an earlier rule does not lower the shortage of a later rule - a phantom shortage that copies nothing.)
-Replicates(d) == \E k \in 1..Len(d.tasks) : Len(d.tasks[k].nodes) > 0
-Quiet(hs) == \A n \in hs : LET d == Decide27(n, hs, {}, {}) IN ~Replicates(d) /\ d.del = "none"
-NoTasks(hs) == \A n \in hs : ~Replicates(Decide27(n, hs, {}, {}))
-e\* a check "replicates" when it hands the replicator a task with at least one candidate node. (With overlapping
-\* rules the code as found keeps calling the replicator with an EMPTY candidate list: a holder remembered from
-\* an earlier rule does not lower the shortage of a later rule - a phantom shortage that copies nothing.)
-Replicates(d) == \E k \in 1..Len(d.tasks) : Len(d.tasks[k].nodes) > 0
-Quiet(hs) == \A n \in hs : LET d == Decide27(n, hs, {}, {}) IN ~Replicates(d) /\ d.del = "none"
-NoTasks(hs) == \A n \in hs : ~Replicates(Decide27(n, hs, {}, {}))
- \* a check "replicates" when it hands the replicator a task with at least one candidate node. (With overlapping
-\* rules the code as found keeps calling the replicator with an EMPTY candidate list: a holder remembered from
-\* an earlier rule does not lower the shortage of a later rule - a phantom shortage that copies nothing.)
-Replicates(d) == \E k \in 1..Len(d.tasks) : Len(d.tasks[k].nodes) > 0
-Quiet(hs) == \A n \in hs : LET d == Decide27(n, hs, {}, {}) IN ~Replicates(d) /\ d.del = "none"
-NoTasks(hs) == \A n \in hs : ~Replicates(Decide27(n, hs, {}, {}))
-n\* a check "replicates" when it hands the replicator a task with at least one candidate node. (With overlapping
-\* rules the code as found keeps calling the replicator with an EMPTY candidate list: a holder remembered from
-\* an earlier rule does not lower the shortage of a later rule - a phantom shortage that copies nothing.)
-Replicates(d) == \E k \in 1..Len(d.tasks) : Len(d.tasks[k].nodes) > 0
-Quiet(hs) == \A n \in hs : LET d == Decide27(n, hs, {}, {}) IN ~Replicates(d) /\ d.del = "none"
-NoTasks(hs) == \A n \in hs : ~Replicates(Decide27(n, hs, {}, {}))
-,\* a check "replicates" when it hands the replicator a task with at least one candidate node. (With overlapping
-\* rules the code as found keeps calling the replicator with an EMPTY candidate list: a holder remembered from
-\* an earlier rule does not lower the shortage of a later rule - a phantom shortage that copies nothing.)
-Replicates(d) == \E k \in 1..Len(d.tasks) : Len(d.tasks[k].nodes) > 0
-Quiet(hs) == \A n \in hs : LET d == Decide27(n, hs, {}, {}) IN ~Replicates(d) /\ d.del = "none"
-NoTasks(hs) == \A n \in hs : ~Replicates(Decide27(n, hs, {}, {}))
- \* a check "replicates" when it hands the replicator a task with at least one candidate node. (With overlapping
-\* rules the code as found keeps calling the replicator with an EMPTY candidate list: a holder remembered from
-\* an earlier rule does not lower the shortage of a later rule - a phantom shortage that copies nothing.)
-Replicates(d) == \E k \in 1..Len(d.tasks) : Len(d.tasks[k].nodes) > 0
-Quiet(hs) == \A n \in hs : LET d == Decide27(n, hs, {}, {}) IN ~Replicates(d) /\ d.del = "none"
-NoTasks(hs) == \A n \in hs : ~Replicates(Decide27(n, hs, {}, {}))
-n\* a check "replicates" when it hands the replicator a task with at least one candidate node. (With overlapping
-\* rules the code as found keeps calling the replicator with an EMPTY candidate list: a holder remembered from
-\* an earlier rule does not lower the shortage of a later rule - a phantom shortage that copies nothing.)
-Replicates(d) == \E k \in 1..Len(d.tasks) : Len(d.tasks[k].nodes) > 0
-Quiet(hs) == \A n \in hs : LET d == Decide27(n, hs, {}, {}) IN ~Replicates(d) /\ d.del = "none"
-NoTasks(hs) == \A n \in hs : ~Replicates(Decide27(n, hs, {}, {}))
-o\* a check "replicates" when it hands the replicator a task with at least one candidate node. (With overlapping
-\* rules the code as found keeps calling the replicator with an EMPTY candidate list: a holder remembered from
-\* an earlier rule does not lower the shortage of a later rule - a phantom shortage that copies nothing.)
-Replicates(d) == \E k \in 1..Len(d.tasks) : Len(d.tasks[k].nodes) > 0
-Quiet(hs) == \A n \in hs : LET d == Decide27(n, hs, {}, {}) IN ~Replicates(d) /\ d.del = "none"
-NoTasks(hs) == \A n \in hs : ~Replicates(Decide27(n, hs, {}, {}))
-d\* a check "replicates" when it hands the replicator a task with at least one candidate node. (With overlapping
-\* rules the code as found keeps calling the replicator with an EMPTY candidate list: a holder remembered from
-\* an earlier rule does not lower the shortage of a later rule - a phantom shortage that copies nothing.)
-Replicates(d) == \E k \in 1..Len(d.tasks) : Len(d.tasks[k].nodes) > 0
-Quiet(hs) == \A n \in hs : LET d == Decide27(n, hs, {}, {}) IN ~Replicates(d) /\ d.del = "none"
-NoTasks(hs) == \A n \in hs : ~Replicates(Decide27(n, hs, {}, {}))
-e\* a check "replicates" when it hands the replicator a task with at least one candidate node. (With overlapping
-\* rules the code as found keeps calling the replicator with an EMPTY candidate list: a holder remembered from
-\* an earlier rule does not lower the shortage of a later rule - a phantom shortage that copies nothing.)
-Replicates(d) == \E k \in 1..Len(d.tasks) : Len(d.tasks[k].nodes) > 0
-Quiet(hs) == \A n \in hs : LET d == Decide27(n, hs, {}, {}) IN ~Replicates(d) /\ d.del = "none"
-NoTasks(hs) == \A n \in hs : ~Replicates(Decide27(n, hs, {}, {}))
- \* a check "replicates" when it hands the replicator a task with at least one candidate node. (With overlapping
-\* rules the code as found keeps calling the replicator with an EMPTY candidate list: a holder remembered from
-\* an earlier rule does not lower the shortage of a later rule - a phantom shortage that copies nothing.)
-Replicates(d) == \E k \in 1..Len(d.tasks) : Len(d.tasks[k].nodes) > 0
-Quiet(hs) == \A n \in hs : LET d == Decide27(n, hs, {}, {}) IN ~Replicates(d) /\ d.del = "none"
-NoTasks(hs) == \A n \in hs : ~Replicates(Decide27(n, hs, {}, {}))
-n\* a check "replicates" when it hands the replicator a task with at least one candidate node. (With overlapping
-\* rules the code as found keeps calling the replicator with an EMPTY candidate list: a holder remembered from
-\* an earlier rule does not lower the shortage of a later rule - a phantom shortage that copies nothing.)
-Replicates(d) == \E k \in 1..Len(d.tasks) : Len(d.tasks[k].nodes) > 0
-Quiet(hs) == \A n \in hs : LET d == Decide27(n, hs, {}, {}) IN ~Replicates(d) /\ d.del = "none"
-NoTasks(hs) == \A n \in hs : ~Replicates(Decide27(n, hs, {}, {}))
-a\* a check "replicates" when it hands the replicator a task with at least one candidate node. (With overlapping
-\* rules the code as found keeps calling the replicator with an EMPTY candidate list: a holder remembered from
-\* an earlier rule does not lower the shortage of a later rule - a phantom shortage that copies nothing.)
-Replicates(d) == \E k \in 1..Len(d.tasks) : Len(d.tasks[k].nodes) > 0
-Quiet(hs) == \A n \in hs : LET d == Decide27(n, hs, {}, {}) IN ~Replicates(d) /\ d.del = "none"
-NoTasks(hs) == \A n \in hs : ~Replicates(Decide27(n, hs, {}, {}))
-m\* a check "replicates" when it hands the replicator a task with at least one candidate node. (With overlapping
-\* rules the code as found keeps calling the replicator with an EMPTY candidate list: a holder remembered from
-\* an earlier rule does not lower the shortage of a later rule - a phantom shortage that copies nothing.)
-Replicates(d) == \E k \in 1..Len(d.tasks) : Len(d.tasks[k].nodes) > 0
-Quiet(hs) == \A n \in hs : LET d == Decide27(n, hs, {}, {}) IN ~Replicates(d) /\ d.del = "none"
-NoTasks(hs) == \A n \in hs : ~Replicates(Decide27(n, hs, {}, {}))
-e\* a check "replicates" when it hands the replicator a task with at least one candidate node. (With overlapping
-\* rules the code as found keeps calling the replicator with an EMPTY candidate list: a holder remembered from
-\* an earlier rule does not lower the shortage of a later rule - a phantom shortage that copies nothing.)
-Replicates(d) == \E k \in 1..Len(d.tasks) : Len(d.tasks[k].nodes) > 0
-Quiet(hs) == \A n \in hs : LET d == Decide27(n, hs, {}, {}) IN ~Replicates(d) /\ d.del = "none"
-NoTasks(hs) == \A n \in hs : ~Replicates(Decide27(n, hs, {}, {}))
-s\* a check "replicates" when it hands the replicator a task with at least one candidate node. (With overlapping
-\* rules the code as found keeps calling the replicator with an EMPTY candidate list: a holder remembered from
-\* an earlier rule does not lower the shortage of a later rule - a phantom shortage that copies nothing.)
-Replicates(d) == \E k \in 1..Len(d.tasks) : Len(d.tasks[k].nodes) > 0
-Quiet(hs) == \A n \in hs : LET d == Decide27(n, hs, {}, {}) IN ~Replicates(d) /\ d.del = "none"
-NoTasks(hs) == \A n \in hs : ~Replicates(Decide27(n, hs, {}, {}))
- \* a check "replicates" when it hands the replicator a task with at least one candidate node. (With overlapping
-\* rules the code as found keeps calling the replicator with an EMPTY candidate list: a holder remembered from
-\* an earlier rule does not lower the shortage of a later rule - a phantom shortage that copies nothing.)
-Replicates(d) == \E k \in 1..Len(d.tasks) : Len(d.tasks[k].nodes) > 0
-Quiet(hs) == \A n \in hs : LET d == Decide27(n, hs, {}, {}) IN ~Replicates(d) /\ d.del = "none"
-NoTasks(hs) == \A n \in hs : ~Replicates(Decide27(n, hs, {}, {}))
-t\* a check "replicates" when it hands the replicator a task with at least one candidate node. (With overlapping
-\* rules the code as found keeps calling the replicator with an EMPTY candidate list: a holder remembered from
-\* an earlier rule does not lower the shortage of a later rule - a phantom shortage that copies nothing.)
-Replicates(d) == \E k \in 1..Len(d.tasks) : Len(d.tasks[k].nodes) > 0
-Quiet(hs) == \A n \in hs : LET d == Decide27(n, hs, {}, {}) IN ~Replicates(d) /\ d.del = "none"
-NoTasks(hs) == \A n \in hs : ~Replicates(Decide27(n, hs, {}, {}))
-r\* a check "replicates" when it hands the replicator a task with at least one candidate node. (With overlapping
-\* rules the code as found keeps calling the replicator with an EMPTY candidate list: a holder remembered from
-\* an earlier rule does not lower the shortage of a later rule - a phantom shortage that copies nothing.)
-Replicates(d) == \E k \in 1..Len(d.tasks) : Len(d.tasks[k].nodes) > 0
-Quiet(hs) == \A n \in hs : LET d == Decide27(n, hs, {}, {}) IN ~Replicates(d) /\ d.del = "none"
-NoTasks(hs) == \A n \in hs : ~Replicates(Decide27(n, hs, {}, {}))
-a\* a check "replicates" when it hands the replicator a task with at least one candidate node. (With overlapping
-\* rules the code as found keeps calling the replicator with an EMPTY candidate list: a holder remembered from
-\* an earlier rule does not lower the shortage of a later rule - a phantom shortage that copies nothing.)
-Replicates(d) == \E k \in 1..Len(d.tasks) : Len(d.tasks[k].nodes) > 0
-Quiet(hs) == \A n \in hs : LET d == Decide27(n, hs, {}, {}) IN ~Replicates(d) /\ d.del = "none"
-NoTasks(hs) == \A n \in hs : ~Replicates(Decide27(n, hs, {}, {}))
-n\* a check "replicates" when it hands the replicator a task with at least one candidate node. (With overlapping
-\* rules the code as found keeps calling the replicator with an EMPTY candidate list: a holder remembered from
-\* an earlier rule does not lower the shortage of a later rule - a phantom shortage that copies nothing.)
-Replicates(d) == \E k \in 1..Len(d.tasks) : Len(d.tasks[k].nodes) > 0
-Quiet(hs) == \A n \in hs : LET d == Decide27(n, hs, {}, {}) IN ~Replicates(d) /\ d.del = "none"
-NoTasks(hs) == \A n \in hs : ~Replicates(Decide27(n, hs, {}, {}))
-s\* a check "replicates" when it hands the replicator a task with at least one candidate node. (With overlapping
-\* rules the code as found keeps calling the replicator with an EMPTY candidate list: a holder remembered from
-\* an earlier rule does not lower the shortage of a later rule - a phantom shortage that copies nothing.)
-Replicates(d) == \E k \in 1..Len(d.tasks) : Len(d.tasks[k].nodes) > 0
-Quiet(hs) == \A n \in hs : LET d == Decide27(n, hs, {}, {}) IN ~Replicates(d) /\ d.del = "none"
-NoTasks(hs) == \A n \in hs : ~Replicates(Decide27(n, hs, {}, {}))
-l\* a check "replicates" when it hands the replicator a task with at least one candidate node. (With overlapping
-\* rules the code as found keeps calling the replicator with an EMPTY candidate list: a holder remembered from
-\* an earlier rule does not lower the shortage of a later rule - a phantom shortage that copies nothing.)
-Replicates(d) == \E k \in 1..Len(d.tasks) : Len(d.tasks[k].nodes) > 0
-Quiet(hs) == \A n \in hs : LET d == Decide27(n, hs, {}, {}) IN ~Replicates(d) /\ d.del = "none"
-NoTasks(hs) == \A n \in hs : ~Replicates(Decide27(n, hs, {}, {}))
-a\* a check "replicates" when it hands the replicator a task with at least one candidate node. (With overlapping
-\* rules the code as found keeps calling the replicator with an EMPTY candidate list: a holder remembered from
-\* an earlier rule does not lower the shortage of a later rule - a phantom shortage that copies nothing.)
-Replicates(d) == \E k \in 1..Len(d.tasks) : Len(d.tasks[k].nodes) > 0
-Quiet(hs) == \A n \in hs : LET d == Decide27(n, hs, {}, {}) IN ~Replicates(d) /\ d.del = "none"
-NoTasks(hs) == \A n \in hs : ~Replicates(Decide27(n, hs, {}, {}))
-t\* a check "replicates" when it hands the replicator a task with at least one candidate node. (With overlapping
-\* rules the code as found keeps calling the replicator with an EMPTY candidate list: a holder remembered from
-\* an earlier rule does not lower the shortage of a later rule - a phantom shortage that copies nothing.)
-Replicates(d) == \E k \in 1..Len(d.tasks) : Len(d.tasks[k].nodes) > 0
-Quiet(hs) == \A n \in hs : LET d == Decide27(n, hs, {}, {}) IN ~Replicates(d) /\ d.del = "none"
-NoTasks(hs) == \A n \in hs : ~Replicates(Decide27(n, hs, {}, {}))
-e\* a check "replicates" when it hands the replicator a task with at least one candidate node. (With overlapping
-\* rules the code as found keeps calling the replicator with an EMPTY candidate list: a holder remembered from
-\* an earlier rule does not lower the shortage of a later rule - a phantom shortage that copies nothing.)
-Replicates(d) == \E k \in 1..Len(d.tasks) : Len(d.tasks[k].nodes) > 0
-Quiet(hs) == \A n \in hs : LET d == Decide27(n, hs, {}, {}) IN ~Replicates(d) /\ d.del = "none"
-NoTasks(hs) == \A n \in hs : ~Replicates(Decide27(n, hs, {}, {}))
-d\* a check "replicates" when it hands the replicator a task with at least one candidate node. (With overlapping
-\* rules the code as found keeps calling the replicator with an EMPTY candidate list: a holder remembered from
-\* an earlier rule does not lower the shortage of a later rule - a phantom shortage that copies nothing.)
-Replicates(d) == \E k \in 1..Len(d.tasks) : Len(d.tasks[k].nodes) > 0
-Quiet(hs) == \A n \in hs : LET d == Decide27(n, hs, {}, {}) IN ~Replicates(d) /\ d.del = "none"
-NoTasks(hs) == \A n \in hs : ~Replicates(Decide27(n, hs, {}, {}))
- \* a check "replicates" when it hands the replicator a task with at least one candidate node. (With overlapping
-\* rules the code as found keeps calling the replicator with an EMPTY candidate list: a holder remembered from
-\* an earlier rule does not lower the shortage of a later rule - a phantom shortage that copies nothing.)
-Replicates(d) == \E k \in 1..Len(d.tasks) : Len(d.tasks[k].nodes) > 0
-Quiet(hs) == \A n \in hs : LET d == Decide27(n, hs, {}, {}) IN ~Replicates(d) /\ d.del = "none"
-NoTasks(hs) == \A n \in hs : ~Replicates(Decide27(n, hs, {}, {}))
-b\* a check "replicates" when it hands the replicator a task with at least one candidate node. (With overlapping
-\* rules the code as found keeps calling the replicator with an EMPTY candidate list: a holder remembered from
-\* an earlier rule does not lower the shortage of a later rule - a phantom shortage that copies nothing.)
-Replicates(d) == \E k \in 1..Len(d.tasks) : Len(d.tasks[k].nodes) > 0
-Quiet(hs) == \A n \in hs : LET d == Decide27(n, hs, {}, {}) IN ~Replicates(d) /\ d.del = "none"
-NoTasks(hs) == \A n \in hs : ~Replicates(Decide27(n, hs, {}, {}))
-a\* a check "replicates" when it hands the replicator a task with at least one candidate node. (With overlapping
-\* rules the code as found keeps calling the replicator with an EMPTY candidate list: a holder remembered from
-\* an earlier rule does not lower the shortage of a later rule - a phantom shortage that copies nothing.)
-Replicates(d) == \E k \in 1..Len(d.tasks) : Len(d.tasks[k].nodes) > 0
-Quiet(hs) == \A n \in hs : LET d == Decide27(n, hs, {}, {}) IN ~Replicates(d) /\ d.del = "none"
-NoTasks(hs) == \A n \in hs : ~Replicates(Decide27(n, hs, {}, {}))
-c\* a check "replicates" when it hands the replicator a task with at least one candidate node. (With overlapping
-\* rules the code as found keeps calling the replicator with an EMPTY candidate list: a holder remembered from
-\* an earlier rule does not lower the shortage of a later rule - a phantom shortage that copies nothing.)
-Replicates(d) == \E k \in 1..Len(d.tasks) : Len(d.tasks[k].nodes) > 0
-Quiet(hs) == \A n \in hs : LET d == Decide27(n, hs, {}, {}) IN ~Replicates(d) /\ d.del = "none"
-NoTasks(hs) == \A n \in hs : ~Replicates(Decide27(n, hs, {}, {}))
-k\* a check "replicates" when it hands the replicator a task with at least one candidate node. (With overlapping
-\* rules the code as found keeps calling the replicator with an EMPTY candidate list: a holder remembered from
-\* an earlier rule does not lower the shortage of a later rule - a phantom shortage that copies nothing.)
-Replicates(d) == \E k \in 1..Len(d.tasks) : Len(d.tasks[k].nodes) > 0
-Quiet(hs) == \A n \in hs : LET d == Decide27(n, hs, {}, {}) IN ~Replicates(d) /\ d.del = "none"
-NoTasks(hs) == \A n \in hs : ~Replicates(Decide27(n, hs, {}, {}))
-
-\* a check "replicates" when it hands the replicator a task with at least one candidate node. (With overlapping
-\* rules the code as found keeps calling the replicator with an EMPTY candidate list: a holder remembered from
-\* an earlier rule does not lower the shortage of a later rule - a phantom shortage that copies nothing.)
-Replicates(d) == \E k \in 1..Len(d.tasks) : Len(d.tasks[k].nodes) > 0
-Quiet(hs) == \A n \in hs : LET d == Decide27(n, hs, {}, {}) IN ~Replicates(d) /\ d.del = "none"
-NoTasks(hs) == \A n \in hs : ~Replicates(Decide27(n, hs, {}, {}))
-D\* a check "replicates" when it hands the replicator a task with at least one candidate node. (With overlapping
-\* rules the code as found keeps calling the replicator with an EMPTY candidate list: a holder remembered from
-\* an earlier rule does not lower the shortage of a later rule - a phantom shortage that copies nothing.)
-Replicates(d) == \E k \in 1..Len(d.tasks) : Len(d.tasks[k].nodes) > 0
-Quiet(hs) == \A n \in hs : LET d == Decide27(n, hs, {}, {}) IN ~Replicates(d) /\ d.del = "none"
-NoTasks(hs) == \A n \in hs : ~Replicates(Decide27(n, hs, {}, {}))
-e\* a check "replicates" when it hands the replicator a task with at least one candidate node. (With overlapping
-\* rules the code as found keeps calling the replicator with an EMPTY candidate list: a holder remembered from
-\* an earlier rule does not lower the shortage of a later rule - a phantom shortage that copies nothing.)
-Replicates(d) == \E k \in 1..Len(d.tasks) : Len(d.tasks[k].nodes) > 0
-Quiet(hs) == \A n \in hs : LET d == Decide27(n, hs, {}, {}) IN ~Replicates(d) /\ d.del = "none"
-NoTasks(hs) == \A n \in hs : ~Replicates(Decide27(n, hs, {}, {}))
-c\* a check "replicates" when it hands the replicator a task with at least one candidate node. (With overlapping
-\* rules the code as found keeps calling the replicator with an EMPTY candidate list: a holder remembered from
-\* an earlier rule does not lower the shortage of a later rule - a phantom shortage that copies nothing.)
-Replicates(d) == \E k \in 1..Len(d.tasks) : Len(d.tasks[k].nodes) > 0
-Quiet(hs) == \A n \in hs : LET d == Decide27(n, hs, {}, {}) IN ~Replicates(d) /\ d.del = "none"
-NoTasks(hs) == \A n \in hs : ~Replicates(Decide27(n, hs, {}, {}))
-i\* a check "replicates" when it hands the replicator a task with at least one candidate node. (With overlapping
-\* rules the code as found keeps calling the replicator with an EMPTY candidate list: a holder remembered from
-\* an earlier rule does not lower the shortage of a later rule - a phantom shortage that copies nothing.)
-Replicates(d) == \E k \in 1..Len(d.tasks) : Len(d.tasks[k].nodes) > 0
-Quiet(hs) == \A n \in hs : LET d == Decide27(n, hs, {}, {}) IN ~Replicates(d) /\ d.del = "none"
-NoTasks(hs) == \A n \in hs : ~Replicates(Decide27(n, hs, {}, {}))
-d\* a check "replicates" when it hands the replicator a task with at least one candidate node. (With overlapping
-\* rules the code as found keeps calling the replicator with an EMPTY candidate list: a holder remembered from
-\* an earlier rule does not lower the shortage of a later rule - a phantom shortage that copies nothing.)
-Replicates(d) == \E k \in 1..Len(d.tasks) : Len(d.tasks[k].nodes) > 0
-Quiet(hs) == \A n \in hs : LET d == Decide27(n, hs, {}, {}) IN ~Replicates(d) /\ d.del = "none"
-NoTasks(hs) == \A n \in hs : ~Replicates(Decide27(n, hs, {}, {}))
-e\* a check "replicates" when it hands the replicator a task with at least one candidate node. (With overlapping
-\* rules the code as found keeps calling the replicator with an EMPTY candidate list: a holder remembered from
-\* an earlier rule does not lower the shortage of a later rule - a phantom shortage that copies nothing.)
-Replicates(d) == \E k \in 1..Len(d.tasks) : Len(d.tasks[k].nodes) > 0
-Quiet(hs) == \A n \in hs : LET d == Decide27(n, hs, {}, {}) IN ~Replicates(d) /\ d.del = "none"
-NoTasks(hs) == \A n \in hs : ~Replicates(Decide27(n, hs, {}, {}))
-2\* a check "replicates" when it hands the replicator a task with at least one candidate node. (With overlapping
-\* rules the code as found keeps calling the replicator with an EMPTY candidate list: a holder remembered from
-\* an earlier rule does not lower the shortage of a later rule - a phantom shortage that copies nothing.)
-Replicates(d) == \E k \in 1..Len(d.tasks) : Len(d.tasks[k].nodes) > 0
-Quiet(hs) == \A n \in hs : LET d == Decide27(n, hs, {}, {}) IN ~Replicates(d) /\ d.del = "none"
-NoTasks(hs) == \A n \in hs : ~Replicates(Decide27(n, hs, {}, {}))
-7\* a check "replicates" when it hands the replicator a task with at least one candidate node. (With overlapping
-\* rules the code as found keeps calling the replicator with an EMPTY candidate list: a holder remembered from
-\* an earlier rule does not lower the shortage of a later rule - a phantom shortage that copies nothing.)
-Replicates(d) == \E k \in 1..Len(d.tasks) : Len(d.tasks[k].nodes) > 0
-Quiet(hs) == \A n \in hs : LET d == Decide27(n, hs, {}, {}) IN ~Replicates(d) /\ d.del = "none"
-NoTasks(hs) == \A n \in hs : ~Replicates(Decide27(n, hs, {}, {}))
-(\* a check "replicates" when it hands the replicator a task with at least one candidate node. (With overlapping
-\* rules the code as found keeps calling the replicator with an EMPTY candidate list: a holder remembered from
-\* an earlier rule does not lower the shortage of a later rule - a phantom shortage that copies nothing.)
-Replicates(d) == \E k \in 1..Len(d.tasks) : Len(d.tasks[k].nodes) > 0
-Quiet(hs) == \A n \in hs : LET d == Decide27(n, hs, {}, {}) IN ~Replicates(d) /\ d.del = "none"
-NoTasks(hs) == \A n \in hs : ~Replicates(Decide27(n, hs, {}, {}))
-n\* a check "replicates" when it hands the replicator a task with at least one candidate node. (With overlapping
-\* rules the code as found keeps calling the replicator with an EMPTY candidate list: a holder remembered from
-\* an earlier rule does not lower the shortage of a later rule - a phantom shortage that copies nothing.)
-Replicates(d) == \E k \in 1..Len(d.tasks) : Len(d.tasks[k].nodes) > 0
-Quiet(hs) == \A n \in hs : LET d == Decide27(n, hs, {}, {}) IN ~Replicates(d) /\ d.del = "none"
-NoTasks(hs) == \A n \in hs : ~Replicates(Decide27(n, hs, {}, {}))
-,\* a check "replicates" when it hands the replicator a task with at least one candidate node. (With overlapping
-\* rules the code as found keeps calling the replicator with an EMPTY candidate list: a holder remembered from
-\* an earlier rule does not lower the shortage of a later rule - a phantom shortage that copies nothing.)
-Replicates(d) == \E k \in 1..Len(d.tasks) : Len(d.tasks[k].nodes) > 0
-Quiet(hs) == \A n \in hs : LET d == Decide27(n, hs, {}, {}) IN ~Replicates(d) /\ d.del = "none"
-NoTasks(hs) == \A n \in hs : ~Replicates(Decide27(n, hs, {}, {}))
- \* a check "replicates" when it hands the replicator a task with at least one candidate node. (With overlapping
-\* rules the code as found keeps calling the replicator with an EMPTY candidate list: a holder remembered from
-\* an earlier rule does not lower the shortage of a later rule - a phantom shortage that copies nothing.)
-Replicates(d) == \E k \in 1..Len(d.tasks) : Len(d.tasks[k].nodes) > 0
-Quiet(hs) == \A n \in hs : LET d == Decide27(n, hs, {}, {}) IN ~Replicates(d) /\ d.del = "none"
-NoTasks(hs) == \A n \in hs : ~Replicates(Decide27(n, hs, {}, {}))
-h\* a check "replicates" when it hands the replicator a task with at least one candidate node. (With overlapping
-\* rules the code as found keeps calling the replicator with an EMPTY candidate list: a holder remembered from
-\* an earlier rule does not lower the shortage of a later rule - a phantom shortage that copies nothing.)
-Replicates(d) == \E k \in 1..Len(d.tasks) : Len(d.tasks[k].nodes) > 0
-Quiet(hs) == \A n \in hs : LET d == Decide27(n, hs, {}, {}) IN ~Replicates(d) /\ d.del = "none"
-NoTasks(hs) == \A n \in hs : ~Replicates(Decide27(n, hs, {}, {}))
-s\* a check "replicates" when it hands the replicator a task with at least one candidate node. (With overlapping
-\* rules the code as found keeps calling the replicator with an EMPTY candidate list: a holder remembered from
-\* an earlier rule does not lower the shortage of a later rule - a phantom shortage that copies nothing.)
-Replicates(d) == \E k \in 1..Len(d.tasks) : Len(d.tasks[k].nodes) > 0
-Quiet(hs) == \A n \in hs : LET d == Decide27(n, hs, {}, {}) IN ~Replicates(d) /\ d.del = "none"
-NoTasks(hs) == \A n \in hs : ~Replicates(Decide27(n, hs, {}, {}))
-,\* a check "replicates" when it hands the replicator a task with at least one candidate node. (With overlapping
-\* rules the code as found keeps calling the replicator with an EMPTY candidate list: a holder remembered from
-\* an earlier rule does not lower the shortage of a later rule - a phantom shortage that copies nothing.)
-Replicates(d) == \E k \in 1..Len(d.tasks) : Len(d.tasks[k].nodes) > 0
-Quiet(hs) == \A n \in hs : LET d == Decide27(n, hs, {}, {}) IN ~Replicates(d) /\ d.del = "none"
-NoTasks(hs) == \A n \in hs : ~Replicates(Decide27(n, hs, {}, {}))
- \* a check "replicates" when it hands the replicator a task with at least one candidate node. (With overlapping
-\* rules the code as found keeps calling the replicator with an EMPTY candidate list: a holder remembered from
-\* an earlier rule does not lower the shortage of a later rule - a phantom shortage that copies nothing.)
-Replicates(d) == \E k \in 1..Len(d.tasks) : Len(d.tasks[k].nodes) > 0
-Quiet(hs) == \A n \in hs : LET d == Decide27(n, hs, {}, {}) IN ~Replicates(d) /\ d.del = "none"
-NoTasks(hs) == \A n \in hs : ~Replicates(Decide27(n, hs, {}, {}))
-d\* a check "replicates" when it hands the replicator a task with at least one candidate node. (With overlapping
-\* rules the code as found keeps calling the replicator with an EMPTY candidate list: a holder remembered from
-\* an earlier rule does not lower the shortage of a later rule - a phantom shortage that copies nothing.)
-Replicates(d) == \E k \in 1..Len(d.tasks) : Len(d.tasks[k].nodes) > 0
-Quiet(hs) == \A n \in hs : LET d == Decide27(n, hs, {}, {}) IN ~Replicates(d) /\ d.del = "none"
-NoTasks(hs) == \A n \in hs : ~Replicates(Decide27(n, hs, {}, {}))
-o\* a check "replicates" when it hands the replicator a task with at least one candidate node. (With overlapping
-\* rules the code as found keeps calling the replicator with an EMPTY candidate list: a holder remembered from
-\* an earlier rule does not lower the shortage of a later rule - a phantom shortage that copies nothing.)
-Replicates(d) == \E k \in 1..Len(d.tasks) : Len(d.tasks[k].nodes) > 0
-Quiet(hs) == \A n \in hs : LET d == Decide27(n, hs, {}, {}) IN ~Replicates(d) /\ d.del = "none"
-NoTasks(hs) == \A n \in hs : ~Replicates(Decide27(n, hs, {}, {}))
-w\* a check "replicates" when it hands the replicator a task with at least one candidate node. (With overlapping
-\* rules the code as found keeps calling the replicator with an EMPTY candidate list: a holder remembered from
-\* an earlier rule does not lower the shortage of a later rule - a phantom shortage that copies nothing.)
-Replicates(d) == \E k \in 1..Len(d.tasks) : Len(d.tasks[k].nodes) > 0
-Quiet(hs) == \A n \in hs : LET d == Decide27(n, hs, {}, {}) IN ~Replicates(d) /\ d.del = "none"
-NoTasks(hs) == \A n \in hs : ~Replicates(Decide27(n, hs, {}, {}))
-n\* a check "replicates" when it hands the replicator a task with at least one candidate node. (With overlapping
-\* rules the code as found keeps calling the replicator with an EMPTY candidate list: a holder remembered from
-\* an earlier rule does not lower the shortage of a later rule - a phantom shortage that copies nothing.)
-Replicates(d) == \E k \in 1..Len(d.tasks) : Len(d.tasks[k].nodes) > 0
-Quiet(hs) == \A n \in hs : LET d == Decide27(n, hs, {}, {}) IN ~Replicates(d) /\ d.del = "none"
-NoTasks(hs) == \A n \in hs : ~Replicates(Decide27(n, hs, {}, {}))
-,\* a check "replicates" when it hands the replicator a task with at least one candidate node. (With overlapping
-\* rules the code as found keeps calling the replicator with an EMPTY candidate list: a holder remembered from
-\* an earlier rule does not lower the shortage of a later rule - a phantom shortage that copies nothing.)
-Replicates(d) == \E k \in 1..Len(d.tasks) : Len(d.tasks[k].nodes) > 0
-Quiet(hs) == \A n \in hs : LET d == Decide27(n, hs, {}, {}) IN ~Replicates(d) /\ d.del = "none"
-NoTasks(hs) == \A n \in hs : ~Replicates(Decide27(n, hs, {}, {}))
- \* a check "replicates" when it hands the replicator a task with at least one candidate node. (With overlapping
-\* rules the code as found keeps calling the replicator with an EMPTY candidate list: a holder remembered from
-\* an earlier rule does not lower the shortage of a later rule - a phantom shortage that copies nothing.)
-Replicates(d) == \E k \in 1..Len(d.tasks) : Len(d.tasks[k].nodes) > 0
-Quiet(hs) == \A n \in hs : LET d == Decide27(n, hs, {}, {}) IN ~Replicates(d) /\ d.del = "none"
-NoTasks(hs) == \A n \in hs : ~Replicates(Decide27(n, hs, {}, {}))
-r\* a check "replicates" when it hands the replicator a task with at least one candidate node. (With overlapping
-\* rules the code as found keeps calling the replicator with an EMPTY candidate list: a holder remembered from
-\* an earlier rule does not lower the shortage of a later rule - a phantom shortage that copies nothing.)
-Replicates(d) == \E k \in 1..Len(d.tasks) : Len(d.tasks[k].nodes) > 0
-Quiet(hs) == \A n \in hs : LET d == Decide27(n, hs, {}, {}) IN ~Replicates(d) /\ d.del = "none"
-NoTasks(hs) == \A n \in hs : ~Replicates(Decide27(n, hs, {}, {}))
-e\* a check "replicates" when it hands the replicator a task with at least one candidate node. (With overlapping
-\* rules the code as found keeps calling the replicator with an EMPTY candidate list: a holder remembered from
-\* an earlier rule does not lower the shortage of a later rule - a phantom shortage that copies nothing.)
-Replicates(d) == \E k \in 1..Len(d.tasks) : Len(d.tasks[k].nodes) > 0
-Quiet(hs) == \A n \in hs : LET d == Decide27(n, hs, {}, {}) IN ~Replicates(d) /\ d.del = "none"
-NoTasks(hs) == \A n \in hs : ~Replicates(Decide27(n, hs, {}, {}))
-f\* a check "replicates" when it hands the replicator a task with at least one candidate node. (With overlapping
-\* rules the code as found keeps calling the replicator with an EMPTY candidate list: a holder remembered from
-\* an earlier rule does not lower the shortage of a later rule - a phantom shortage that copies nothing.)
-Replicates(d) == \E k \in 1..Len(d.tasks) : Len(d.tasks[k].nodes) > 0
-Quiet(hs) == \A n \in hs : LET d == Decide27(n, hs, {}, {}) IN ~Replicates(d) /\ d.del = "none"
-NoTasks(hs) == \A n \in hs : ~Replicates(Decide27(n, hs, {}, {}))
-u\* a check "replicates" when it hands the replicator a task with at least one candidate node. (With overlapping
-\* rules the code as found keeps calling the replicator with an EMPTY candidate list: a holder remembered from
-\* an earlier rule does not lower the shortage of a later rule - a phantom shortage that copies nothing.)
-Replicates(d) == \E k \in 1..Len(d.tasks) : Len(d.tasks[k].nodes) > 0
-Quiet(hs) == \A n \in hs : LET d == Decide27(n, hs, {}, {}) IN ~Replicates(d) /\ d.del = "none"
-NoTasks(hs) == \A n \in hs : ~Replicates(Decide27(n, hs, {}, {}))
-s\* a check "replicates" when it hands the replicator a task with at least one candidate node. (With overlapping
-\* rules the code as found keeps calling the replicator with an EMPTY candidate list: a holder remembered from
-\* an earlier rule does not lower the shortage of a later rule - a phantom shortage that copies nothing.)
-Replicates(d) == \E k \in 1..Len(d.tasks) : Len(d.tasks[k].nodes) > 0
-Quiet(hs) == \A n \in hs : LET d == Decide27(n, hs, {}, {}) IN ~Replicates(d) /\ d.del = "none"
-NoTasks(hs) == \A n \in hs : ~Replicates(Decide27(n, hs, {}, {}))
-e\* a check "replicates" when it hands the replicator a task with at least one candidate node. (With overlapping
-\* rules the code as found keeps calling the replicator with an EMPTY candidate list: a holder remembered from
-\* an earlier rule does not lower the shortage of a later rule - a phantom shortage that copies nothing.)
-Replicates(d) == \E k \in 1..Len(d.tasks) : Len(d.tasks[k].nodes) > 0
-Quiet(hs) == \A n \in hs : LET d == Decide27(n, hs, {}, {}) IN ~Replicates(d) /\ d.del = "none"
-NoTasks(hs) == \A n \in hs : ~Replicates(Decide27(n, hs, {}, {}))
-)\* a check "replicates" when it hands the replicator a task with at least one candidate node. (With overlapping
-\* rules the code as found keeps calling the replicator with an EMPTY candidate list: a holder remembered from
-\* an earlier rule does not lower the shortage of a later rule - a phantom shortage that copies nothing.)
-Replicates(d) == \E k \in 1..Len(d.tasks) : Len(d.tasks[k].nodes) > 0
-Quiet(hs) == \A n \in hs : LET d == Decide27(n, hs, {}, {}) IN ~Replicates(d) /\ d.del = "none"
-NoTasks(hs) == \A n \in hs : ~Replicates(Decide27(n, hs, {}, {}))
- \* a check "replicates" when it hands the replicator a task with at least one candidate node. (With overlapping
-\* rules the code as found keeps calling the replicator with an EMPTY candidate list: a holder remembered from
-\* an earlier rule does not lower the shortage of a later rule - a phantom shortage that copies nothing.)
-Replicates(d) == \E k \in 1..Len(d.tasks) : Len(d.tasks[k].nodes) > 0
-Quiet(hs) == \A n \in hs : LET d == Decide27(n, hs, {}, {}) IN ~Replicates(d) /\ d.del = "none"
-NoTasks(hs) == \A n \in hs : ~Replicates(Decide27(n, hs, {}, {}))
-=\* a check "replicates" when it hands the replicator a task with at least one candidate node. (With overlapping
-\* rules the code as found keeps calling the replicator with an EMPTY candidate list: a holder remembered from
-\* an earlier rule does not lower the shortage of a later rule - a phantom shortage that copies nothing.)
-Replicates(d) == \E k \in 1..Len(d.tasks) : Len(d.tasks[k].nodes) > 0
-Quiet(hs) == \A n \in hs : LET d == Decide27(n, hs, {}, {}) IN ~Replicates(d) /\ d.del = "none"
-NoTasks(hs) == \A n \in hs : ~Replicates(Decide27(n, hs, {}, {}))
-=\* a check "replicates" when it hands the replicator a task with at least one candidate node. (With overlapping
-\* rules the code as found keeps calling the replicator with an EMPTY candidate list: a holder remembered from
-\* an earlier rule does not lower the shortage of a later rule - a phantom shortage that copies nothing.)
-Replicates(d) == \E k \in 1..Len(d.tasks) : Len(d.tasks[k].nodes) > 0
-Quiet(hs) == \A n \in hs : LET d == Decide27(n, hs, {}, {}) IN ~Replicates(d) /\ d.del = "none"
-NoTasks(hs) == \A n \in hs : ~Replicates(Decide27(n, hs, {}, {}))
-
-\* a check "replicates" when it hands the replicator a task with at least one candidate node. (With overlapping
-\* rules the code as found keeps calling the replicator with an EMPTY candidate list: a holder remembered from
-\* an earlier rule does not lower the shortage of a later rule - a phantom shortage that copies nothing.)
-Replicates(d) == \E k \in 1..Len(d.tasks) : Len(d.tasks[k].nodes) > 0
-Quiet(hs) == \A n \in hs : LET d == Decide27(n, hs, {}, {}) IN ~Replicates(d) /\ d.del = "none"
-NoTasks(hs) == \A n \in hs : ~Replicates(Decide27(n, hs, {}, {}))
- \* a check "replicates" when it hands the replicator a task with at least one candidate node. (With overlapping
-\* rules the code as found keeps calling the replicator with an EMPTY candidate list: a holder remembered from
-\* an earlier rule does not lower the shortage of a later rule - a phantom shortage that copies nothing.)
-Replicates(d) == \E k \in 1..Len(d.tasks) : Len(d.tasks[k].nodes) > 0
-Quiet(hs) == \A n \in hs : LET d == Decide27(n, hs, {}, {}) IN ~Replicates(d) /\ d.del = "none"
-NoTasks(hs) == \A n \in hs : ~Replicates(Decide27(n, hs, {}, {}))
- \* a check "replicates" when it hands the replicator a task with at least one candidate node. (With overlapping
-\* rules the code as found keeps calling the replicator with an EMPTY candidate list: a holder remembered from
-\* an earlier rule does not lower the shortage of a later rule - a phantom shortage that copies nothing.)
-Replicates(d) == \E k \in 1..Len(d.tasks) : Len(d.tasks[k].nodes) > 0
-Quiet(hs) == \A n \in hs : LET d == Decide27(n, hs, {}, {}) IN ~Replicates(d) /\ d.del = "none"
-NoTasks(hs) == \A n \in hs : ~Replicates(Decide27(n, hs, {}, {}))
-L\* a check "replicates" when it hands the replicator a task with at least one candidate node. (With overlapping
-\* rules the code as found keeps calling the replicator with an EMPTY candidate list: a holder remembered from
-\* an earlier rule does not lower the shortage of a later rule - a phantom shortage that copies nothing.)
-Replicates(d) == \E k \in 1..Len(d.tasks) : Len(d.tasks[k].nodes) > 0
-Quiet(hs) == \A n \in hs : LET d == Decide27(n, hs, {}, {}) IN ~Replicates(d) /\ d.del = "none"
-NoTasks(hs) == \A n \in hs : ~Replicates(Decide27(n, hs, {}, {}))
-E\* a check "replicates" when it hands the replicator a task with at least one candidate node. (With overlapping
-\* rules the code as found keeps calling the replicator with an EMPTY candidate list: a holder remembered from
-\* an earlier rule does not lower the shortage of a later rule - a phantom shortage that copies nothing.)
-Replicates(d) == \E k \in 1..Len(d.tasks) : Len(d.tasks[k].nodes) > 0
-Quiet(hs) == \A n \in hs : LET d == Decide27(n, hs, {}, {}) IN ~Replicates(d) /\ d.del = "none"
-NoTasks(hs) == \A n \in hs : ~Replicates(Decide27(n, hs, {}, {}))
-T\* a check "replicates" when it hands the replicator a task with at least one candidate node. (With overlapping
-\* rules the code as found keeps calling the replicator with an EMPTY candidate list: a holder remembered from
-\* an earlier rule does not lower the shortage of a later rule - a phantom shortage that copies nothing.)
-Replicates(d) == \E k \in 1..Len(d.tasks) : Len(d.tasks[k].nodes) > 0
-Quiet(hs) == \A n \in hs : LET d == Decide27(n, hs, {}, {}) IN ~Replicates(d) /\ d.del = "none"
-NoTasks(hs) == \A n \in hs : ~Replicates(Decide27(n, hs, {}, {}))
- \* a check "replicates" when it hands the replicator a task with at least one candidate node. (With overlapping
-\* rules the code as found keeps calling the replicator with an EMPTY candidate list: a holder remembered from
-\* an earlier rule does not lower the shortage of a later rule - a phantom shortage that copies nothing.)
-Replicates(d) == \E k \in 1..Len(d.tasks) : Len(d.tasks[k].nodes) > 0
-Quiet(hs) == \A n \in hs : LET d == Decide27(n, hs, {}, {}) IN ~Replicates(d) /\ d.del = "none"
-NoTasks(hs) == \A n \in hs : ~Replicates(Decide27(n, hs, {}, {}))
-f\* a check "replicates" when it hands the replicator a task with at least one candidate node. (With overlapping
-\* rules the code as found keeps calling the replicator with an EMPTY candidate list: a holder remembered from
-\* an earlier rule does not lower the shortage of a later rule - a phantom shortage that copies nothing.)
-Replicates(d) == \E k \in 1..Len(d.tasks) : Len(d.tasks[k].nodes) > 0
-Quiet(hs) == \A n \in hs : LET d == Decide27(n, hs, {}, {}) IN ~Replicates(d) /\ d.del = "none"
-NoTasks(hs) == \A n \in hs : ~Replicates(Decide27(n, hs, {}, {}))
- \* a check "replicates" when it hands the replicator a task with at least one candidate node. (With overlapping
-\* rules the code as found keeps calling the replicator with an EMPTY candidate list: a holder remembered from
-\* an earlier rule does not lower the shortage of a later rule - a phantom shortage that copies nothing.)
-Replicates(d) == \E k \in 1..Len(d.tasks) : Len(d.tasks[k].nodes) > 0
-Quiet(hs) == \A n \in hs : LET d == Decide27(n, hs, {}, {}) IN ~Replicates(d) /\ d.del = "none"
-NoTasks(hs) == \A n \in hs : ~Replicates(Decide27(n, hs, {}, {}))
-=\* a check "replicates" when it hands the replicator a task with at least one candidate node. (With overlapping
-\* rules the code as found keeps calling the replicator with an EMPTY candidate list: a holder remembered from
-\* an earlier rule does not lower the shortage of a later rule - a phantom shortage that copies nothing.)
-Replicates(d) == \E k \in 1..Len(d.tasks) : Len(d.tasks[k].nodes) > 0
-Quiet(hs) == \A n \in hs : LET d == Decide27(n, hs, {}, {}) IN ~Replicates(d) /\ d.del = "none"
-NoTasks(hs) == \A n \in hs : ~Replicates(Decide27(n, hs, {}, {}))
-=\* a check "replicates" when it hands the replicator a task with at least one candidate node. (With overlapping
-\* rules the code as found keeps calling the replicator with an EMPTY candidate list: a holder remembered from
-\* an earlier rule does not lower the shortage of a later rule - a phantom shortage that copies nothing.)
-Replicates(d) == \E k \in 1..Len(d.tasks) : Len(d.tasks[k].nodes) > 0
-Quiet(hs) == \A n \in hs : LET d == Decide27(n, hs, {}, {}) IN ~Replicates(d) /\ d.del = "none"
-NoTasks(hs) == \A n \in hs : ~Replicates(Decide27(n, hs, {}, {}))
- \* a check "replicates" when it hands the replicator a task with at least one candidate node. (With overlapping
-\* rules the code as found keeps calling the replicator with an EMPTY candidate list: a holder remembered from
-\* an earlier rule does not lower the shortage of a later rule - a phantom shortage that copies nothing.)
-Replicates(d) == \E k \in 1..Len(d.tasks) : Len(d.tasks[k].nodes) > 0
-Quiet(hs) == \A n \in hs : LET d == Decide27(n, hs, {}, {}) IN ~Replicates(d) /\ d.del = "none"
-NoTasks(hs) == \A n \in hs : ~Replicates(Decide27(n, hs, {}, {}))
-F\* a check "replicates" when it hands the replicator a task with at least one candidate node. (With overlapping
-\* rules the code as found keeps calling the replicator with an EMPTY candidate list: a holder remembered from
-\* an earlier rule does not lower the shortage of a later rule - a phantom shortage that copies nothing.)
-Replicates(d) == \E k \in 1..Len(d.tasks) : Len(d.tasks[k].nodes) > 0
-Quiet(hs) == \A n \in hs : LET d == Decide27(n, hs, {}, {}) IN ~Replicates(d) /\ d.del = "none"
-NoTasks(hs) == \A n \in hs : ~Replicates(Decide27(n, hs, {}, {}))
-(\* a check "replicates" when it hands the replicator a task with at least one candidate node. (With overlapping
-\* rules the code as found keeps calling the replicator with an EMPTY candidate list: a holder remembered from
-\* an earlier rule does not lower the shortage of a later rule - a phantom shortage that copies nothing.)
-Replicates(d) == \E k \in 1..Len(d.tasks) : Len(d.tasks[k].nodes) > 0
-Quiet(hs) == \A n \in hs : LET d == Decide27(n, hs, {}, {}) IN ~Replicates(d) /\ d.del = "none"
-NoTasks(hs) == \A n \in hs : ~Replicates(Decide27(n, hs, {}, {}))
-S\* a check "replicates" when it hands the replicator a task with at least one candidate node. (With overlapping
-\* rules the code as found keeps calling the replicator with an EMPTY candidate list: a holder remembered from
-\* an earlier rule does not lower the shortage of a later rule - a phantom shortage that copies nothing.)
-Replicates(d) == \E k \in 1..Len(d.tasks) : Len(d.tasks[k].nodes) > 0
-Quiet(hs) == \A n \in hs : LET d == Decide27(n, hs, {}, {}) IN ~Replicates(d) /\ d.del = "none"
-NoTasks(hs) == \A n \in hs : ~Replicates(Decide27(n, hs, {}, {}))
-c\* a check "replicates" when it hands the replicator a task with at least one candidate node. (With overlapping
-\* rules the code as found keeps calling the replicator with an EMPTY candidate list: a holder remembered from
-\* an earlier rule does not lower the shortage of a later rule - a phantom shortage that copies nothing.)
-Replicates(d) == \E k \in 1..Len(d.tasks) : Len(d.tasks[k].nodes) > 0
-Quiet(hs) == \A n \in hs : LET d == Decide27(n, hs, {}, {}) IN ~Replicates(d) /\ d.del = "none"
-NoTasks(hs) == \A n \in hs : ~Replicates(Decide27(n, hs, {}, {}))
-n\* a check "replicates" when it hands the replicator a task with at least one candidate node. (With overlapping
-\* rules the code as found keeps calling the replicator with an EMPTY candidate list: a holder remembered from
-\* an earlier rule does not lower the shortage of a later rule - a phantom shortage that copies nothing.)
-Replicates(d) == \E k \in 1..Len(d.tasks) : Len(d.tasks[k].nodes) > 0
-Quiet(hs) == \A n \in hs : LET d == Decide27(n, hs, {}, {}) IN ~Replicates(d) /\ d.del = "none"
-NoTasks(hs) == \A n \in hs : ~Replicates(Decide27(n, hs, {}, {}))
-(\* a check "replicates" when it hands the replicator a task with at least one candidate node. (With overlapping
-\* rules the code as found keeps calling the replicator with an EMPTY candidate list: a holder remembered from
-\* an earlier rule does not lower the shortage of a later rule - a phantom shortage that copies nothing.)
-Replicates(d) == \E k \in 1..Len(d.tasks) : Len(d.tasks[k].nodes) > 0
-Quiet(hs) == \A n \in hs : LET d == Decide27(n, hs, {}, {}) IN ~Replicates(d) /\ d.del = "none"
-NoTasks(hs) == \A n \in hs : ~Replicates(Decide27(n, hs, {}, {}))
-n\* a check "replicates" when it hands the replicator a task with at least one candidate node. (With overlapping
-\* rules the code as found keeps calling the replicator with an EMPTY candidate list: a holder remembered from
-\* an earlier rule does not lower the shortage of a later rule - a phantom shortage that copies nothing.)
-Replicates(d) == \E k \in 1..Len(d.tasks) : Len(d.tasks[k].nodes) > 0
-Quiet(hs) == \A n \in hs : LET d == Decide27(n, hs, {}, {}) IN ~Replicates(d) /\ d.del = "none"
-NoTasks(hs) == \A n \in hs : ~Replicates(Decide27(n, hs, {}, {}))
-,\* a check "replicates" when it hands the replicator a task with at least one candidate node. (With overlapping
-\* rules the code as found keeps calling the replicator with an EMPTY candidate list: a holder remembered from
-\* an earlier rule does not lower the shortage of a later rule - a phantom shortage that copies nothing.)
-Replicates(d) == \E k \in 1..Len(d.tasks) : Len(d.tasks[k].nodes) > 0
-Quiet(hs) == \A n \in hs : LET d == Decide27(n, hs, {}, {}) IN ~Replicates(d) /\ d.del = "none"
-NoTasks(hs) == \A n \in hs : ~Replicates(Decide27(n, hs, {}, {}))
- \* a check "replicates" when it hands the replicator a task with at least one candidate node. (With overlapping
-\* rules the code as found keeps calling the replicator with an EMPTY candidate list: a holder remembered from
-\* an earlier rule does not lower the shortage of a later rule - a phantom shortage that copies nothing.)
-Replicates(d) == \E k \in 1..Len(d.tasks) : Len(d.tasks[k].nodes) > 0
-Quiet(hs) == \A n \in hs : LET d == Decide27(n, hs, {}, {}) IN ~Replicates(d) /\ d.del = "none"
-NoTasks(hs) == \A n \in hs : ~Replicates(Decide27(n, hs, {}, {}))
-h\* a check "replicates" when it hands the replicator a task with at least one candidate node. (With overlapping
-\* rules the code as found keeps calling the replicator with an EMPTY candidate list: a holder remembered from
-\* an earlier rule does not lower the shortage of a later rule - a phantom shortage that copies nothing.)
-Replicates(d) == \E k \in 1..Len(d.tasks) : Len(d.tasks[k].nodes) > 0
-Quiet(hs) == \A n \in hs : LET d == Decide27(n, hs, {}, {}) IN ~Replicates(d) /\ d.del = "none"
-NoTasks(hs) == \A n \in hs : ~Replicates(Decide27(n, hs, {}, {}))
-s\* a check "replicates" when it hands the replicator a task with at least one candidate node. (With overlapping
-\* rules the code as found keeps calling the replicator with an EMPTY candidate list: a holder remembered from
-\* an earlier rule does not lower the shortage of a later rule - a phantom shortage that copies nothing.)
-Replicates(d) == \E k \in 1..Len(d.tasks) : Len(d.tasks[k].nodes) > 0
-Quiet(hs) == \A n \in hs : LET d == Decide27(n, hs, {}, {}) IN ~Replicates(d) /\ d.del = "none"
-NoTasks(hs) == \A n \in hs : ~Replicates(Decide27(n, hs, {}, {}))
-,\* a check "replicates" when it hands the replicator a task with at least one candidate node. (With overlapping
-\* rules the code as found keeps calling the replicator with an EMPTY candidate list: a holder remembered from
-\* an earlier rule does not lower the shortage of a later rule - a phantom shortage that copies nothing.)
-Replicates(d) == \E k \in 1..Len(d.tasks) : Len(d.tasks[k].nodes) > 0
-Quiet(hs) == \A n \in hs : LET d == Decide27(n, hs, {}, {}) IN ~Replicates(d) /\ d.del = "none"
-NoTasks(hs) == \A n \in hs : ~Replicates(Decide27(n, hs, {}, {}))
- \* a check "replicates" when it hands the replicator a task with at least one candidate node. (With overlapping
-\* rules the code as found keeps calling the replicator with an EMPTY candidate list: a holder remembered from
-\* an earlier rule does not lower the shortage of a later rule - a phantom shortage that copies nothing.)
-Replicates(d) == \E k \in 1..Len(d.tasks) : Len(d.tasks[k].nodes) > 0
-Quiet(hs) == \A n \in hs : LET d == Decide27(n, hs, {}, {}) IN ~Replicates(d) /\ d.del = "none"
-NoTasks(hs) == \A n \in hs : ~Replicates(Decide27(n, hs, {}, {}))
-d\* a check "replicates" when it hands the replicator a task with at least one candidate node. (With overlapping
-\* rules the code as found keeps calling the replicator with an EMPTY candidate list: a holder remembered from
-\* an earlier rule does not lower the shortage of a later rule - a phantom shortage that copies nothing.)
-Replicates(d) == \E k \in 1..Len(d.tasks) : Len(d.tasks[k].nodes) > 0
-Quiet(hs) == \A n \in hs : LET d == Decide27(n, hs, {}, {}) IN ~Replicates(d) /\ d.del = "none"
-NoTasks(hs) == \A n \in hs : ~Replicates(Decide27(n, hs, {}, {}))
-o\* a check "replicates" when it hands the replicator a task with at least one candidate node. (With overlapping
-\* rules the code as found keeps calling the replicator with an EMPTY candidate list: a holder remembered from
-\* an earlier rule does not lower the shortage of a later rule - a phantom shortage that copies nothing.)
-Replicates(d) == \E k \in 1..Len(d.tasks) : Len(d.tasks[k].nodes) > 0
-Quiet(hs) == \A n \in hs : LET d == Decide27(n, hs, {}, {}) IN ~Replicates(d) /\ d.del = "none"
-NoTasks(hs) == \A n \in hs : ~Replicates(Decide27(n, hs, {}, {}))
-w\* a check "replicates" when it hands the replicator a task with at least one candidate node. (With overlapping
-\* rules the code as found keeps calling the replicator with an EMPTY candidate list: a holder remembered from
-\* an earlier rule does not lower the shortage of a later rule - a phantom shortage that copies nothing.)
-Replicates(d) == \E k \in 1..Len(d.tasks) : Len(d.tasks[k].nodes) > 0
-Quiet(hs) == \A n \in hs : LET d == Decide27(n, hs, {}, {}) IN ~Replicates(d) /\ d.del = "none"
-NoTasks(hs) == \A n \in hs : ~Replicates(Decide27(n, hs, {}, {}))
-n\* a check "replicates" when it hands the replicator a task with at least one candidate node. (With overlapping
-\* rules the code as found keeps calling the replicator with an EMPTY candidate list: a holder remembered from
-\* an earlier rule does not lower the shortage of a later rule - a phantom shortage that copies nothing.)
-Replicates(d) == \E k \in 1..Len(d.tasks) : Len(d.tasks[k].nodes) > 0
-Quiet(hs) == \A n \in hs : LET d == Decide27(n, hs, {}, {}) IN ~Replicates(d) /\ d.del = "none"
-NoTasks(hs) == \A n \in hs : ~Replicates(Decide27(n, hs, {}, {}))
-,\* a check "replicates" when it hands the replicator a task with at least one candidate node. (With overlapping
-\* rules the code as found keeps calling the replicator with an EMPTY candidate list: a holder remembered from
-\* an earlier rule does not lower the shortage of a later rule - a phantom shortage that copies nothing.)
-Replicates(d) == \E k \in 1..Len(d.tasks) : Len(d.tasks[k].nodes) > 0
-Quiet(hs) == \A n \in hs : LET d == Decide27(n, hs, {}, {}) IN ~Replicates(d) /\ d.del = "none"
-NoTasks(hs) == \A n \in hs : ~Replicates(Decide27(n, hs, {}, {}))
- \* a check "replicates" when it hands the replicator a task with at least one candidate node. (With overlapping
-\* rules the code as found keeps calling the replicator with an EMPTY candidate list: a holder remembered from
-\* an earlier rule does not lower the shortage of a later rule - a phantom shortage that copies nothing.)
-Replicates(d) == \E k \in 1..Len(d.tasks) : Len(d.tasks[k].nodes) > 0
-Quiet(hs) == \A n \in hs : LET d == Decide27(n, hs, {}, {}) IN ~Replicates(d) /\ d.del = "none"
-NoTasks(hs) == \A n \in hs : ~Replicates(Decide27(n, hs, {}, {}))
-r\* a check "replicates" when it hands the replicator a task with at least one candidate node. (With overlapping
-\* rules the code as found keeps calling the replicator with an EMPTY candidate list: a holder remembered from
-\* an earlier rule does not lower the shortage of a later rule - a phantom shortage that copies nothing.)
-Replicates(d) == \E k \in 1..Len(d.tasks) : Len(d.tasks[k].nodes) > 0
-Quiet(hs) == \A n \in hs : LET d == Decide27(n, hs, {}, {}) IN ~Replicates(d) /\ d.del = "none"
-NoTasks(hs) == \A n \in hs : ~Replicates(Decide27(n, hs, {}, {}))
-e\* a check "replicates" when it hands the replicator a task with at least one candidate node. (With overlapping
-\* rules the code as found keeps calling the replicator with an EMPTY candidate list: a holder remembered from
-\* an earlier rule does not lower the shortage of a later rule - a phantom shortage that copies nothing.)
-Replicates(d) == \E k \in 1..Len(d.tasks) : Len(d.tasks[k].nodes) > 0
-Quiet(hs) == \A n \in hs : LET d == Decide27(n, hs, {}, {}) IN ~Replicates(d) /\ d.del = "none"
-NoTasks(hs) == \A n \in hs : ~Replicates(Decide27(n, hs, {}, {}))
-f\* a check "replicates" when it hands the replicator a task with at least one candidate node. (With overlapping
-\* rules the code as found keeps calling the replicator with an EMPTY candidate list: a holder remembered from
-\* an earlier rule does not lower the shortage of a later rule - a phantom shortage that copies nothing.)
-Replicates(d) == \E k \in 1..Len(d.tasks) : Len(d.tasks[k].nodes) > 0
-Quiet(hs) == \A n \in hs : LET d == Decide27(n, hs, {}, {}) IN ~Replicates(d) /\ d.del = "none"
-NoTasks(hs) == \A n \in hs : ~Replicates(Decide27(n, hs, {}, {}))
-u\* a check "replicates" when it hands the replicator a task with at least one candidate node. (With overlapping
-\* rules the code as found keeps calling the replicator with an EMPTY candidate list: a holder remembered from
-\* an earlier rule does not lower the shortage of a later rule - a phantom shortage that copies nothing.)
-Replicates(d) == \E k \in 1..Len(d.tasks) : Len(d.tasks[k].nodes) > 0
-Quiet(hs) == \A n \in hs : LET d == Decide27(n, hs, {}, {}) IN ~Replicates(d) /\ d.del = "none"
-NoTasks(hs) == \A n \in hs : ~Replicates(Decide27(n, hs, {}, {}))
-s\* a check "replicates" when it hands the replicator a task with at least one candidate node. (With overlapping
-\* rules the code as found keeps calling the replicator with an EMPTY candidate list: a holder remembered from
-\* an earlier rule does not lower the shortage of a later rule - a phantom shortage that copies nothing.)
-Replicates(d) == \E k \in 1..Len(d.tasks) : Len(d.tasks[k].nodes) > 0
-Quiet(hs) == \A n \in hs : LET d == Decide27(n, hs, {}, {}) IN ~Replicates(d) /\ d.del = "none"
-NoTasks(hs) == \A n \in hs : ~Replicates(Decide27(n, hs, {}, {}))
-e\* a check "replicates" when it hands the replicator a task with at least one candidate node. (With overlapping
-\* rules the code as found keeps calling the replicator with an EMPTY candidate list: a holder remembered from
-\* an earlier rule does not lower the shortage of a later rule - a phantom shortage that copies nothing.)
-Replicates(d) == \E k \in 1..Len(d.tasks) : Len(d.tasks[k].nodes) > 0
-Quiet(hs) == \A n \in hs : LET d == Decide27(n, hs, {}, {}) IN ~Replicates(d) /\ d.del = "none"
-NoTasks(hs) == \A n \in hs : ~Replicates(Decide27(n, hs, {}, {}))
-)\* a check "replicates" when it hands the replicator a task with at least one candidate node. (With overlapping
-\* rules the code as found keeps calling the replicator with an EMPTY candidate list: a holder remembered from
-\* an earlier rule does not lower the shortage of a later rule - a phantom shortage that copies nothing.)
-Replicates(d) == \E k \in 1..Len(d.tasks) : Len(d.tasks[k].nodes) > 0
-Quiet(hs) == \A n \in hs : LET d == Decide27(n, hs, {}, {}) IN ~Replicates(d) /\ d.del = "none"
-NoTasks(hs) == \A n \in hs : ~Replicates(Decide27(n, hs, {}, {}))
-,\* a check "replicates" when it hands the replicator a task with at least one candidate node. (With overlapping
-\* rules the code as found keeps calling the replicator with an EMPTY candidate list: a holder remembered from
-\* an earlier rule does not lower the shortage of a later rule - a phantom shortage that copies nothing.)
-Replicates(d) == \E k \in 1..Len(d.tasks) : Len(d.tasks[k].nodes) > 0
-Quiet(hs) == \A n \in hs : LET d == Decide27(n, hs, {}, {}) IN ~Replicates(d) /\ d.del = "none"
-NoTasks(hs) == \A n \in hs : ~Replicates(Decide27(n, hs, {}, {}))
- \* a check "replicates" when it hands the replicator a task with at least one candidate node. (With overlapping
-\* rules the code as found keeps calling the replicator with an EMPTY candidate list: a holder remembered from
-\* an earlier rule does not lower the shortage of a later rule - a phantom shortage that copies nothing.)
-Replicates(d) == \E k \in 1..Len(d.tasks) : Len(d.tasks[k].nodes) > 0
-Quiet(hs) == \A n \in hs : LET d == Decide27(n, hs, {}, {}) IN ~Replicates(d) /\ d.del = "none"
-NoTasks(hs) == \A n \in hs : ~Replicates(Decide27(n, hs, {}, {}))
-F\* a check "replicates" when it hands the replicator a task with at least one candidate node. (With overlapping
-\* rules the code as found keeps calling the replicator with an EMPTY candidate list: a holder remembered from
-\* an earlier rule does not lower the shortage of a later rule - a phantom shortage that copies nothing.)
-Replicates(d) == \E k \in 1..Len(d.tasks) : Len(d.tasks[k].nodes) > 0
-Quiet(hs) == \A n \in hs : LET d == Decide27(n, hs, {}, {}) IN ~Replicates(d) /\ d.del = "none"
-NoTasks(hs) == \A n \in hs : ~Replicates(Decide27(n, hs, {}, {}))
-A\* a check "replicates" when it hands the replicator a task with at least one candidate node. (With overlapping
-\* rules the code as found keeps calling the replicator with an EMPTY candidate list: a holder remembered from
-\* an earlier rule does not lower the shortage of a later rule - a phantom shortage that copies nothing.)
-Replicates(d) == \E k \in 1..Len(d.tasks) : Len(d.tasks[k].nodes) > 0
-Quiet(hs) == \A n \in hs : LET d == Decide27(n, hs, {}, {}) IN ~Replicates(d) /\ d.del = "none"
-NoTasks(hs) == \A n \in hs : ~Replicates(Decide27(n, hs, {}, {}))
-L\* a check "replicates" when it hands the replicator a task with at least one candidate node. (With overlapping
-\* rules the code as found keeps calling the replicator with an EMPTY candidate list: a holder remembered from
-\* an earlier rule does not lower the shortage of a later rule - a phantom shortage that copies nothing.)
-Replicates(d) == \E k \in 1..Len(d.tasks) : Len(d.tasks[k].nodes) > 0
-Quiet(hs) == \A n \in hs : LET d == Decide27(n, hs, {}, {}) IN ~Replicates(d) /\ d.del = "none"
-NoTasks(hs) == \A n \in hs : ~Replicates(Decide27(n, hs, {}, {}))
-S\* a check "replicates" when it hands the replicator a task with at least one candidate node. (With overlapping
-\* rules the code as found keeps calling the replicator with an EMPTY candidate list: a holder remembered from
-\* an earlier rule does not lower the shortage of a later rule - a phantom shortage that copies nothing.)
-Replicates(d) == \E k \in 1..Len(d.tasks) : Len(d.tasks[k].nodes) > 0
-Quiet(hs) == \A n \in hs : LET d == Decide27(n, hs, {}, {}) IN ~Replicates(d) /\ d.del = "none"
-NoTasks(hs) == \A n \in hs : ~Replicates(Decide27(n, hs, {}, {}))
-E\* a check "replicates" when it hands the replicator a task with at least one candidate node. (With overlapping
-\* rules the code as found keeps calling the replicator with an EMPTY candidate list: a holder remembered from
-\* an earlier rule does not lower the shortage of a later rule - a phantom shortage that copies nothing.)
-Replicates(d) == \E k \in 1..Len(d.tasks) : Len(d.tasks[k].nodes) > 0
-Quiet(hs) == \A n \in hs : LET d == Decide27(n, hs, {}, {}) IN ~Replicates(d) /\ d.del = "none"
-NoTasks(hs) == \A n \in hs : ~Replicates(Decide27(n, hs, {}, {}))
-)\* a check "replicates" when it hands the replicator a task with at least one candidate node. (With overlapping
-\* rules the code as found keeps calling the replicator with an EMPTY candidate list: a holder remembered from
-\* an earlier rule does not lower the shortage of a later rule - a phantom shortage that copies nothing.)
-Replicates(d) == \E k \in 1..Len(d.tasks) : Len(d.tasks[k].nodes) > 0
-Quiet(hs) == \A n \in hs : LET d == Decide27(n, hs, {}, {}) IN ~Replicates(d) /\ d.del = "none"
-NoTasks(hs) == \A n \in hs : ~Replicates(Decide27(n, hs, {}, {}))
- \* a check "replicates" when it hands the replicator a task with at least one candidate node. (With overlapping
-\* rules the code as found keeps calling the replicator with an EMPTY candidate list: a holder remembered from
-\* an earlier rule does not lower the shortage of a later rule - a phantom shortage that copies nothing.)
-Replicates(d) == \E k \in 1..Len(d.tasks) : Len(d.tasks[k].nodes) > 0
-Quiet(hs) == \A n \in hs : LET d == Decide27(n, hs, {}, {}) IN ~Replicates(d) /\ d.del = "none"
-NoTasks(hs) == \A n \in hs : ~Replicates(Decide27(n, hs, {}, {}))
-I\* a check "replicates" when it hands the replicator a task with at least one candidate node. (With overlapping
-\* rules the code as found keeps calling the replicator with an EMPTY candidate list: a holder remembered from
-\* an earlier rule does not lower the shortage of a later rule - a phantom shortage that copies nothing.)
-Replicates(d) == \E k \in 1..Len(d.tasks) : Len(d.tasks[k].nodes) > 0
-Quiet(hs) == \A n \in hs : LET d == Decide27(n, hs, {}, {}) IN ~Replicates(d) /\ d.del = "none"
-NoTasks(hs) == \A n \in hs : ~Replicates(Decide27(n, hs, {}, {}))
-N\* a check "replicates" when it hands the replicator a task with at least one candidate node. (With overlapping
-\* rules the code as found keeps calling the replicator with an EMPTY candidate list: a holder remembered from
-\* an earlier rule does not lower the shortage of a later rule - a phantom shortage that copies nothing.)
-Replicates(d) == \E k \in 1..Len(d.tasks) : Len(d.tasks[k].nodes) > 0
-Quiet(hs) == \A n \in hs : LET d == Decide27(n, hs, {}, {}) IN ~Replicates(d) /\ d.del = "none"
-NoTasks(hs) == \A n \in hs : ~Replicates(Decide27(n, hs, {}, {}))
-
-\* a check "replicates" when it hands the replicator a task with at least one candidate node. (With overlapping
-\* rules the code as found keeps calling the replicator with an EMPTY candidate list: a holder remembered from
-\* an earlier rule does not lower the shortage of a later rule - a phantom shortage that copies nothing.)
-Replicates(d) == \E k \in 1..Len(d.tasks) : Len(d.tasks[k].nodes) > 0
-Quiet(hs) == \A n \in hs : LET d == Decide27(n, hs, {}, {}) IN ~Replicates(d) /\ d.del = "none"
-NoTasks(hs) == \A n \in hs : ~Replicates(Decide27(n, hs, {}, {}))
- \* a check "replicates" when it hands the replicator a task with at least one candidate node. (With overlapping
-\* rules the code as found keeps calling the replicator with an EMPTY candidate list: a holder remembered from
-\* an earlier rule does not lower the shortage of a later rule - a phantom shortage that copies nothing.)
-Replicates(d) == \E k \in 1..Len(d.tasks) : Len(d.tasks[k].nodes) > 0
-Quiet(hs) == \A n \in hs : LET d == Decide27(n, hs, {}, {}) IN ~Replicates(d) /\ d.del = "none"
-NoTasks(hs) == \A n \in hs : ~Replicates(Decide27(n, hs, {}, {}))
- \* a check "replicates" when it hands the replicator a task with at least one candidate node. (With overlapping
-\* rules the code as found keeps calling the replicator with an EMPTY candidate list: a holder remembered from
-\* an earlier rule does not lower the shortage of a later rule - a phantom shortage that copies nothing.)
-Replicates(d) == \E k \in 1..Len(d.tasks) : Len(d.tasks[k].nodes) > 0
-Quiet(hs) == \A n \in hs : LET d == Decide27(n, hs, {}, {}) IN ~Replicates(d) /\ d.del = "none"
-NoTasks(hs) == \A n \in hs : ~Replicates(Decide27(n, hs, {}, {}))
-[\* a check "replicates" when it hands the replicator a task with at least one candidate node. (With overlapping
-\* rules the code as found keeps calling the replicator with an EMPTY candidate list: a holder remembered from
-\* an earlier rule does not lower the shortage of a later rule - a phantom shortage that copies nothing.)
-Replicates(d) == \E k \in 1..Len(d.tasks) : Len(d.tasks[k].nodes) > 0
-Quiet(hs) == \A n \in hs : LET d == Decide27(n, hs, {}, {}) IN ~Replicates(d) /\ d.del = "none"
-NoTasks(hs) == \A n \in hs : ~Replicates(Decide27(n, hs, {}, {}))
-n\* a check "replicates" when it hands the replicator a task with at least one candidate node. (With overlapping
-\* rules the code as found keeps calling the replicator with an EMPTY candidate list: a holder remembered from
-\* an earlier rule does not lower the shortage of a later rule - a phantom shortage that copies nothing.)
-Replicates(d) == \E k \in 1..Len(d.tasks) : Len(d.tasks[k].nodes) > 0
-Quiet(hs) == \A n \in hs : LET d == Decide27(n, hs, {}, {}) IN ~Replicates(d) /\ d.del = "none"
-NoTasks(hs) == \A n \in hs : ~Replicates(Decide27(n, hs, {}, {}))
-o\* a check "replicates" when it hands the replicator a task with at least one candidate node. (With overlapping
-\* rules the code as found keeps calling the replicator with an EMPTY candidate list: a holder remembered from
-\* an earlier rule does not lower the shortage of a later rule - a phantom shortage that copies nothing.)
-Replicates(d) == \E k \in 1..Len(d.tasks) : Len(d.tasks[k].nodes) > 0
-Quiet(hs) == \A n \in hs : LET d == Decide27(n, hs, {}, {}) IN ~Replicates(d) /\ d.del = "none"
-NoTasks(hs) == \A n \in hs : ~Replicates(Decide27(n, hs, {}, {}))
-d\* a check "replicates" when it hands the replicator a task with at least one candidate node. (With overlapping
-\* rules the code as found keeps calling the replicator with an EMPTY candidate list: a holder remembered from
-\* an earlier rule does not lower the shortage of a later rule - a phantom shortage that copies nothing.)
-Replicates(d) == \E k \in 1..Len(d.tasks) : Len(d.tasks[k].nodes) > 0
-Quiet(hs) == \A n \in hs : LET d == Decide27(n, hs, {}, {}) IN ~Replicates(d) /\ d.del = "none"
-NoTasks(hs) == \A n \in hs : ~Replicates(Decide27(n, hs, {}, {}))
-e\* a check "replicates" when it hands the replicator a task with at least one candidate node. (With overlapping
-\* rules the code as found keeps calling the replicator with an EMPTY candidate list: a holder remembered from
-\* an earlier rule does not lower the shortage of a later rule - a phantom shortage that copies nothing.)
-Replicates(d) == \E k \in 1..Len(d.tasks) : Len(d.tasks[k].nodes) > 0
-Quiet(hs) == \A n \in hs : LET d == Decide27(n, hs, {}, {}) IN ~Replicates(d) /\ d.del = "none"
-NoTasks(hs) == \A n \in hs : ~Replicates(Decide27(n, hs, {}, {}))
- \* a check "replicates" when it hands the replicator a task with at least one candidate node. (With overlapping
-\* rules the code as found keeps calling the replicator with an EMPTY candidate list: a holder remembered from
-\* an earlier rule does not lower the shortage of a later rule - a phantom shortage that copies nothing.)
-Replicates(d) == \E k \in 1..Len(d.tasks) : Len(d.tasks[k].nodes) > 0
-Quiet(hs) == \A n \in hs : LET d == Decide27(n, hs, {}, {}) IN ~Replicates(d) /\ d.del = "none"
-NoTasks(hs) == \A n \in hs : ~Replicates(Decide27(n, hs, {}, {}))
-|\* a check "replicates" when it hands the replicator a task with at least one candidate node. (With overlapping
-\* rules the code as found keeps calling the replicator with an EMPTY candidate list: a holder remembered from
-\* an earlier rule does not lower the shortage of a later rule - a phantom shortage that copies nothing.)
-Replicates(d) == \E k \in 1..Len(d.tasks) : Len(d.tasks[k].nodes) > 0
-Quiet(hs) == \A n \in hs : LET d == Decide27(n, hs, {}, {}) IN ~Replicates(d) /\ d.del = "none"
-NoTasks(hs) == \A n \in hs : ~Replicates(Decide27(n, hs, {}, {}))
--\* a check "replicates" when it hands the replicator a task with at least one candidate node. (With overlapping
-\* rules the code as found keeps calling the replicator with an EMPTY candidate list: a holder remembered from
-\* an earlier rule does not lower the shortage of a later rule - a phantom shortage that copies nothing.)
-Replicates(d) == \E k \in 1..Len(d.tasks) : Len(d.tasks[k].nodes) > 0
-Quiet(hs) == \A n \in hs : LET d == Decide27(n, hs, {}, {}) IN ~Replicates(d) /\ d.del = "none"
-NoTasks(hs) == \A n \in hs : ~Replicates(Decide27(n, hs, {}, {}))
->\* a check "replicates" when it hands the replicator a task with at least one candidate node. (With overlapping
-\* rules the code as found keeps calling the replicator with an EMPTY candidate list: a holder remembered from
-\* an earlier rule does not lower the shortage of a later rule - a phantom shortage that copies nothing.)
-Replicates(d) == \E k \in 1..Len(d.tasks) : Len(d.tasks[k].nodes) > 0
-Quiet(hs) == \A n \in hs : LET d == Decide27(n, hs, {}, {}) IN ~Replicates(d) /\ d.del = "none"
-NoTasks(hs) == \A n \in hs : ~Replicates(Decide27(n, hs, {}, {}))
- \* a check "replicates" when it hands the replicator a task with at least one candidate node. (With overlapping
-\* rules the code as found keeps calling the replicator with an EMPTY candidate list: a holder remembered from
-\* an earlier rule does not lower the shortage of a later rule - a phantom shortage that copies nothing.)
-Replicates(d) == \E k \in 1..Len(d.tasks) : Len(d.tasks[k].nodes) > 0
-Quiet(hs) == \A n \in hs : LET d == Decide27(n, hs, {}, {}) IN ~Replicates(d) /\ d.del = "none"
-NoTasks(hs) == \A n \in hs : ~Replicates(Decide27(n, hs, {}, {}))
-n\* a check "replicates" when it hands the replicator a task with at least one candidate node. (With overlapping
-\* rules the code as found keeps calling the replicator with an EMPTY candidate list: a holder remembered from
-\* an earlier rule does not lower the shortage of a later rule - a phantom shortage that copies nothing.)
-Replicates(d) == \E k \in 1..Len(d.tasks) : Len(d.tasks[k].nodes) > 0
-Quiet(hs) == \A n \in hs : LET d == Decide27(n, hs, {}, {}) IN ~Replicates(d) /\ d.del = "none"
-NoTasks(hs) == \A n \in hs : ~Replicates(Decide27(n, hs, {}, {}))
-,\* a check "replicates" when it hands the replicator a task with at least one candidate node. (With overlapping
-\* rules the code as found keeps calling the replicator with an EMPTY candidate list: a holder remembered from
-\* an earlier rule does not lower the shortage of a later rule - a phantom shortage that copies nothing.)
-Replicates(d) == \E k \in 1..Len(d.tasks) : Len(d.tasks[k].nodes) > 0
-Quiet(hs) == \A n \in hs : LET d == Decide27(n, hs, {}, {}) IN ~Replicates(d) /\ d.del = "none"
-NoTasks(hs) == \A n \in hs : ~Replicates(Decide27(n, hs, {}, {}))
- \* a check "replicates" when it hands the replicator a task with at least one candidate node. (With overlapping
-\* rules the code as found keeps calling the replicator with an EMPTY candidate list: a holder remembered from
-\* an earlier rule does not lower the shortage of a later rule - a phantom shortage that copies nothing.)
-Replicates(d) == \E k \in 1..Len(d.tasks) : Len(d.tasks[k].nodes) > 0
-Quiet(hs) == \A n \in hs : LET d == Decide27(n, hs, {}, {}) IN ~Replicates(d) /\ d.del = "none"
-NoTasks(hs) == \A n \in hs : ~Replicates(Decide27(n, hs, {}, {}))
-d\* a check "replicates" when it hands the replicator a task with at least one candidate node. (With overlapping
-\* rules the code as found keeps calling the replicator with an EMPTY candidate list: a holder remembered from
-\* an earlier rule does not lower the shortage of a later rule - a phantom shortage that copies nothing.)
-Replicates(d) == \E k \in 1..Len(d.tasks) : Len(d.tasks[k].nodes) > 0
-Quiet(hs) == \A n \in hs : LET d == Decide27(n, hs, {}, {}) IN ~Replicates(d) /\ d.del = "none"
-NoTasks(hs) == \A n \in hs : ~Replicates(Decide27(n, hs, {}, {}))
-o\* a check "replicates" when it hands the replicator a task with at least one candidate node. (With overlapping
-\* rules the code as found keeps calling the replicator with an EMPTY candidate list: a holder remembered from
-\* an earlier rule does not lower the shortage of a later rule - a phantom shortage that copies nothing.)
-Replicates(d) == \E k \in 1..Len(d.tasks) : Len(d.tasks[k].nodes) > 0
-Quiet(hs) == \A n \in hs : LET d == Decide27(n, hs, {}, {}) IN ~Replicates(d) /\ d.del = "none"
-NoTasks(hs) == \A n \in hs : ~Replicates(Decide27(n, hs, {}, {}))
-w\* a check "replicates" when it hands the replicator a task with at least one candidate node. (With overlapping
-\* rules the code as found keeps calling the replicator with an EMPTY candidate list: a holder remembered from
-\* an earlier rule does not lower the shortage of a later rule - a phantom shortage that copies nothing.)
-Replicates(d) == \E k \in 1..Len(d.tasks) : Len(d.tasks[k].nodes) > 0
-Quiet(hs) == \A n \in hs : LET d == Decide27(n, hs, {}, {}) IN ~Replicates(d) /\ d.del = "none"
-NoTasks(hs) == \A n \in hs : ~Replicates(Decide27(n, hs, {}, {}))
-n\* a check "replicates" when it hands the replicator a task with at least one candidate node. (With overlapping
-\* rules the code as found keeps calling the replicator with an EMPTY candidate list: a holder remembered from
-\* an earlier rule does not lower the shortage of a later rule - a phantom shortage that copies nothing.)
-Replicates(d) == \E k \in 1..Len(d.tasks) : Len(d.tasks[k].nodes) > 0
-Quiet(hs) == \A n \in hs : LET d == Decide27(n, hs, {}, {}) IN ~Replicates(d) /\ d.del = "none"
-NoTasks(hs) == \A n \in hs : ~Replicates(Decide27(n, hs, {}, {}))
- \* a check "replicates" when it hands the replicator a task with at least one candidate node. (With overlapping
-\* rules the code as found keeps calling the replicator with an EMPTY candidate list: a holder remembered from
-\* an earlier rule does not lower the shortage of a later rule - a phantom shortage that copies nothing.)
-Replicates(d) == \E k \in 1..Len(d.tasks) : Len(d.tasks[k].nodes) > 0
-Quiet(hs) == \A n \in hs : LET d == Decide27(n, hs, {}, {}) IN ~Replicates(d) /\ d.del = "none"
-NoTasks(hs) == \A n \in hs : ~Replicates(Decide27(n, hs, {}, {}))
-|\* a check "replicates" when it hands the replicator a task with at least one candidate node. (With overlapping
-\* rules the code as found keeps calling the replicator with an EMPTY candidate list: a holder remembered from
-\* an earlier rule does not lower the shortage of a later rule - a phantom shortage that copies nothing.)
-Replicates(d) == \E k \in 1..Len(d.tasks) : Len(d.tasks[k].nodes) > 0
-Quiet(hs) == \A n \in hs : LET d == Decide27(n, hs, {}, {}) IN ~Replicates(d) /\ d.del = "none"
-NoTasks(hs) == \A n \in hs : ~Replicates(Decide27(n, hs, {}, {}))
--\* a check "replicates" when it hands the replicator a task with at least one candidate node. (With overlapping
-\* rules the code as found keeps calling the replicator with an EMPTY candidate list: a holder remembered from
-\* an earlier rule does not lower the shortage of a later rule - a phantom shortage that copies nothing.)
-Replicates(d) == \E k \in 1..Len(d.tasks) : Len(d.tasks[k].nodes) > 0
-Quiet(hs) == \A n \in hs : LET d == Decide27(n, hs, {}, {}) IN ~Replicates(d) /\ d.del = "none"
-NoTasks(hs) == \A n \in hs : ~Replicates(Decide27(n, hs, {}, {}))
->\* a check "replicates" when it hands the replicator a task with at least one candidate node. (With overlapping
-\* rules the code as found keeps calling the replicator with an EMPTY candidate list: a holder remembered from
-\* an earlier rule does not lower the shortage of a later rule - a phantom shortage that copies nothing.)
-Replicates(d) == \E k \in 1..Len(d.tasks) : Len(d.tasks[k].nodes) > 0
-Quiet(hs) == \A n \in hs : LET d == Decide27(n, hs, {}, {}) IN ~Replicates(d) /\ d.del = "none"
-NoTasks(hs) == \A n \in hs : ~Replicates(Decide27(n, hs, {}, {}))
- \* a check "replicates" when it hands the replicator a task with at least one candidate node. (With overlapping
-\* rules the code as found keeps calling the replicator with an EMPTY candidate list: a holder remembered from
-\* an earlier rule does not lower the shortage of a later rule - a phantom shortage that copies nothing.)
-Replicates(d) == \E k \in 1..Len(d.tasks) : Len(d.tasks[k].nodes) > 0
-Quiet(hs) == \A n \in hs : LET d == Decide27(n, hs, {}, {}) IN ~Replicates(d) /\ d.del = "none"
-NoTasks(hs) == \A n \in hs : ~Replicates(Decide27(n, hs, {}, {}))
-d\* a check "replicates" when it hands the replicator a task with at least one candidate node. (With overlapping
-\* rules the code as found keeps calling the replicator with an EMPTY candidate list: a holder remembered from
-\* an earlier rule does not lower the shortage of a later rule - a phantom shortage that copies nothing.)
-Replicates(d) == \E k \in 1..Len(d.tasks) : Len(d.tasks[k].nodes) > 0
-Quiet(hs) == \A n \in hs : LET d == Decide27(n, hs, {}, {}) IN ~Replicates(d) /\ d.del = "none"
-NoTasks(hs) == \A n \in hs : ~Replicates(Decide27(n, hs, {}, {}))
-o\* a check "replicates" when it hands the replicator a task with at least one candidate node. (With overlapping
-\* rules the code as found keeps calling the replicator with an EMPTY candidate list: a holder remembered from
-\* an earlier rule does not lower the shortage of a later rule - a phantom shortage that copies nothing.)
-Replicates(d) == \E k \in 1..Len(d.tasks) : Len(d.tasks[k].nodes) > 0
-Quiet(hs) == \A n \in hs : LET d == Decide27(n, hs, {}, {}) IN ~Replicates(d) /\ d.del = "none"
-NoTasks(hs) == \A n \in hs : ~Replicates(Decide27(n, hs, {}, {}))
-w\* a check "replicates" when it hands the replicator a task with at least one candidate node. (With overlapping
-\* rules the code as found keeps calling the replicator with an EMPTY candidate list: a holder remembered from
-\* an earlier rule does not lower the shortage of a later rule - a phantom shortage that copies nothing.)
-Replicates(d) == \E k \in 1..Len(d.tasks) : Len(d.tasks[k].nodes) > 0
-Quiet(hs) == \A n \in hs : LET d == Decide27(n, hs, {}, {}) IN ~Replicates(d) /\ d.del = "none"
-NoTasks(hs) == \A n \in hs : ~Replicates(Decide27(n, hs, {}, {}))
-n\* a check "replicates" when it hands the replicator a task with at least one candidate node. (With overlapping
-\* rules the code as found keeps calling the replicator with an EMPTY candidate list: a holder remembered from
-\* an earlier rule does not lower the shortage of a later rule - a phantom shortage that copies nothing.)
-Replicates(d) == \E k \in 1..Len(d.tasks) : Len(d.tasks[k].nodes) > 0
-Quiet(hs) == \A n \in hs : LET d == Decide27(n, hs, {}, {}) IN ~Replicates(d) /\ d.del = "none"
-NoTasks(hs) == \A n \in hs : ~Replicates(Decide27(n, hs, {}, {}))
-,\* a check "replicates" when it hands the replicator a task with at least one candidate node. (With overlapping
-\* rules the code as found keeps calling the replicator with an EMPTY candidate list: a holder remembered from
-\* an earlier rule does not lower the shortage of a later rule - a phantom shortage that copies nothing.)
-Replicates(d) == \E k \in 1..Len(d.tasks) : Len(d.tasks[k].nodes) > 0
-Quiet(hs) == \A n \in hs : LET d == Decide27(n, hs, {}, {}) IN ~Replicates(d) /\ d.del = "none"
-NoTasks(hs) == \A n \in hs : ~Replicates(Decide27(n, hs, {}, {}))
- \* a check "replicates" when it hands the replicator a task with at least one candidate node. (With overlapping
-\* rules the code as found keeps calling the replicator with an EMPTY candidate list: a holder remembered from
-\* an earlier rule does not lower the shortage of a later rule - a phantom shortage that copies nothing.)
-Replicates(d) == \E k \in 1..Len(d.tasks) : Len(d.tasks[k].nodes) > 0
-Quiet(hs) == \A n \in hs : LET d == Decide27(n, hs, {}, {}) IN ~Replicates(d) /\ d.del = "none"
-NoTasks(hs) == \A n \in hs : ~Replicates(Decide27(n, hs, {}, {}))
-d\* a check "replicates" when it hands the replicator a task with at least one candidate node. (With overlapping
-\* rules the code as found keeps calling the replicator with an EMPTY candidate list: a holder remembered from
-\* an earlier rule does not lower the shortage of a later rule - a phantom shortage that copies nothing.)
-Replicates(d) == \E k \in 1..Len(d.tasks) : Len(d.tasks[k].nodes) > 0
-Quiet(hs) == \A n \in hs : LET d == Decide27(n, hs, {}, {}) IN ~Replicates(d) /\ d.del = "none"
-NoTasks(hs) == \A n \in hs : ~Replicates(Decide27(n, hs, {}, {}))
-e\* a check "replicates" when it hands the replicator a task with at least one candidate node. (With overlapping
-\* rules the code as found keeps calling the replicator with an EMPTY candidate list: a holder remembered from
-\* an earlier rule does not lower the shortage of a later rule - a phantom shortage that copies nothing.)
-Replicates(d) == \E k \in 1..Len(d.tasks) : Len(d.tasks[k].nodes) > 0
-Quiet(hs) == \A n \in hs : LET d == Decide27(n, hs, {}, {}) IN ~Replicates(d) /\ d.del = "none"
-NoTasks(hs) == \A n \in hs : ~Replicates(Decide27(n, hs, {}, {}))
-l\* a check "replicates" when it hands the replicator a task with at least one candidate node. (With overlapping
-\* rules the code as found keeps calling the replicator with an EMPTY candidate list: a holder remembered from
-\* an earlier rule does not lower the shortage of a later rule - a phantom shortage that copies nothing.)
-Replicates(d) == \E k \in 1..Len(d.tasks) : Len(d.tasks[k].nodes) > 0
-Quiet(hs) == \A n \in hs : LET d == Decide27(n, hs, {}, {}) IN ~Replicates(d) /\ d.del = "none"
-NoTasks(hs) == \A n \in hs : ~Replicates(Decide27(n, hs, {}, {}))
- \* a check "replicates" when it hands the replicator a task with at least one candidate node. (With overlapping
-\* rules the code as found keeps calling the replicator with an EMPTY candidate list: a holder remembered from
-\* an earlier rule does not lower the shortage of a later rule - a phantom shortage that copies nothing.)
-Replicates(d) == \E k \in 1..Len(d.tasks) : Len(d.tasks[k].nodes) > 0
-Quiet(hs) == \A n \in hs : LET d == Decide27(n, hs, {}, {}) IN ~Replicates(d) /\ d.del = "none"
-NoTasks(hs) == \A n \in hs : ~Replicates(Decide27(n, hs, {}, {}))
-|\* a check "replicates" when it hands the replicator a task with at least one candidate node. (With overlapping
-\* rules the code as found keeps calling the replicator with an EMPTY candidate list: a holder remembered from
-\* an earlier rule does not lower the shortage of a later rule - a phantom shortage that copies nothing.)
-Replicates(d) == \E k \in 1..Len(d.tasks) : Len(d.tasks[k].nodes) > 0
-Quiet(hs) == \A n \in hs : LET d == Decide27(n, hs, {}, {}) IN ~Replicates(d) /\ d.del = "none"
-NoTasks(hs) == \A n \in hs : ~Replicates(Decide27(n, hs, {}, {}))
--\* a check "replicates" when it hands the replicator a task with at least one candidate node. (With overlapping
-\* rules the code as found keeps calling the replicator with an EMPTY candidate list: a holder remembered from
-\* an earlier rule does not lower the shortage of a later rule - a phantom shortage that copies nothing.)
-Replicates(d) == \E k \in 1..Len(d.tasks) : Len(d.tasks[k].nodes) > 0
-Quiet(hs) == \A n \in hs : LET d == Decide27(n, hs, {}, {}) IN ~Replicates(d) /\ d.del = "none"
-NoTasks(hs) == \A n \in hs : ~Replicates(Decide27(n, hs, {}, {}))
->\* a check "replicates" when it hands the replicator a task with at least one candidate node. (With overlapping
-\* rules the code as found keeps calling the replicator with an EMPTY candidate list: a holder remembered from
-\* an earlier rule does not lower the shortage of a later rule - a phantom shortage that copies nothing.)
-Replicates(d) == \E k \in 1..Len(d.tasks) : Len(d.tasks[k].nodes) > 0
-Quiet(hs) == \A n \in hs : LET d == Decide27(n, hs, {}, {}) IN ~Replicates(d) /\ d.del = "none"
-NoTasks(hs) == \A n \in hs : ~Replicates(Decide27(n, hs, {}, {}))
- \* a check "replicates" when it hands the replicator a task with at least one candidate node. (With overlapping
-\* rules the code as found keeps calling the replicator with an EMPTY candidate list: a holder remembered from
-\* an earlier rule does not lower the shortage of a later rule - a phantom shortage that copies nothing.)
-Replicates(d) == \E k \in 1..Len(d.tasks) : Len(d.tasks[k].nodes) > 0
-Quiet(hs) == \A n \in hs : LET d == Decide27(n, hs, {}, {}) IN ~Replicates(d) /\ d.del = "none"
-NoTasks(hs) == \A n \in hs : ~Replicates(Decide27(n, hs, {}, {}))
-f\* a check "replicates" when it hands the replicator a task with at least one candidate node. (With overlapping
-\* rules the code as found keeps calling the replicator with an EMPTY candidate list: a holder remembered from
-\* an earlier rule does not lower the shortage of a later rule - a phantom shortage that copies nothing.)
-Replicates(d) == \E k \in 1..Len(d.tasks) : Len(d.tasks[k].nodes) > 0
-Quiet(hs) == \A n \in hs : LET d == Decide27(n, hs, {}, {}) IN ~Replicates(d) /\ d.del = "none"
-NoTasks(hs) == \A n \in hs : ~Replicates(Decide27(n, hs, {}, {}))
-.\* a check "replicates" when it hands the replicator a task with at least one candidate node. (With overlapping
-\* rules the code as found keeps calling the replicator with an EMPTY candidate list: a holder remembered from
-\* an earlier rule does not lower the shortage of a later rule - a phantom shortage that copies nothing.)
-Replicates(d) == \E k \in 1..Len(d.tasks) : Len(d.tasks[k].nodes) > 0
-Quiet(hs) == \A n \in hs : LET d == Decide27(n, hs, {}, {}) IN ~Replicates(d) /\ d.del = "none"
-NoTasks(hs) == \A n \in hs : ~Replicates(Decide27(n, hs, {}, {}))
-d\* a check "replicates" when it hands the replicator a task with at least one candidate node. (With overlapping
-\* rules the code as found keeps calling the replicator with an EMPTY candidate list: a holder remembered from
-\* an earlier rule does not lower the shortage of a later rule - a phantom shortage that copies nothing.)
-Replicates(d) == \E k \in 1..Len(d.tasks) : Len(d.tasks[k].nodes) > 0
-Quiet(hs) == \A n \in hs : LET d == Decide27(n, hs, {}, {}) IN ~Replicates(d) /\ d.del = "none"
-NoTasks(hs) == \A n \in hs : ~Replicates(Decide27(n, hs, {}, {}))
-e\* a check "replicates" when it hands the replicator a task with at least one candidate node. (With overlapping
-\* rules the code as found keeps calling the replicator with an EMPTY candidate list: a holder remembered from
-\* an earlier rule does not lower the shortage of a later rule - a phantom shortage that copies nothing.)
-Replicates(d) == \E k \in 1..Len(d.tasks) : Len(d.tasks[k].nodes) > 0
-Quiet(hs) == \A n \in hs : LET d == Decide27(n, hs, {}, {}) IN ~Replicates(d) /\ d.del = "none"
-NoTasks(hs) == \A n \in hs : ~Replicates(Decide27(n, hs, {}, {}))
-l\* a check "replicates" when it hands the replicator a task with at least one candidate node. (With overlapping
-\* rules the code as found keeps calling the replicator with an EMPTY candidate list: a holder remembered from
-\* an earlier rule does not lower the shortage of a later rule - a phantom shortage that copies nothing.)
-Replicates(d) == \E k \in 1..Len(d.tasks) : Len(d.tasks[k].nodes) > 0
-Quiet(hs) == \A n \in hs : LET d == Decide27(n, hs, {}, {}) IN ~Replicates(d) /\ d.del = "none"
-NoTasks(hs) == \A n \in hs : ~Replicates(Decide27(n, hs, {}, {}))
-,\* a check "replicates" when it hands the replicator a task with at least one candidate node. (With overlapping
-\* rules the code as found keeps calling the replicator with an EMPTY candidate list: a holder remembered from
-\* an earlier rule does not lower the shortage of a later rule - a phantom shortage that copies nothing.)
-Replicates(d) == \E k \in 1..Len(d.tasks) : Len(d.tasks[k].nodes) > 0
-Quiet(hs) == \A n \in hs : LET d == Decide27(n, hs, {}, {}) IN ~Replicates(d) /\ d.del = "none"
-NoTasks(hs) == \A n \in hs : ~Replicates(Decide27(n, hs, {}, {}))
-
-\* a check "replicates" when it hands the replicator a task with at least one candidate node. (With overlapping
-\* rules the code as found keeps calling the replicator with an EMPTY candidate list: a holder remembered from
-\* an earlier rule does not lower the shortage of a later rule - a phantom shortage that copies nothing.)
-Replicates(d) == \E k \in 1..Len(d.tasks) : Len(d.tasks[k].nodes) > 0
-Quiet(hs) == \A n \in hs : LET d == Decide27(n, hs, {}, {}) IN ~Replicates(d) /\ d.del = "none"
-NoTasks(hs) == \A n \in hs : ~Replicates(Decide27(n, hs, {}, {}))
- \* a check "replicates" when it hands the replicator a task with at least one candidate node. (With overlapping
-\* rules the code as found keeps calling the replicator with an EMPTY candidate list: a holder remembered from
-\* an earlier rule does not lower the shortage of a later rule - a phantom shortage that copies nothing.)
-Replicates(d) == \E k \in 1..Len(d.tasks) : Len(d.tasks[k].nodes) > 0
-Quiet(hs) == \A n \in hs : LET d == Decide27(n, hs, {}, {}) IN ~Replicates(d) /\ d.del = "none"
-NoTasks(hs) == \A n \in hs : ~Replicates(Decide27(n, hs, {}, {}))
- \* a check "replicates" when it hands the replicator a task with at least one candidate node. (With overlapping
-\* rules the code as found keeps calling the replicator with an EMPTY candidate list: a holder remembered from
-\* an earlier rule does not lower the shortage of a later rule - a phantom shortage that copies nothing.)
-Replicates(d) == \E k \in 1..Len(d.tasks) : Len(d.tasks[k].nodes) > 0
-Quiet(hs) == \A n \in hs : LET d == Decide27(n, hs, {}, {}) IN ~Replicates(d) /\ d.del = "none"
-NoTasks(hs) == \A n \in hs : ~Replicates(Decide27(n, hs, {}, {}))
- \* a check "replicates" when it hands the replicator a task with at least one candidate node. (With overlapping
-\* rules the code as found keeps calling the replicator with an EMPTY candidate list: a holder remembered from
-\* an earlier rule does not lower the shortage of a later rule - a phantom shortage that copies nothing.)
-Replicates(d) == \E k \in 1..Len(d.tasks) : Len(d.tasks[k].nodes) > 0
-Quiet(hs) == \A n \in hs : LET d == Decide27(n, hs, {}, {}) IN ~Replicates(d) /\ d.del = "none"
-NoTasks(hs) == \A n \in hs : ~Replicates(Decide27(n, hs, {}, {}))
-t\* a check "replicates" when it hands the replicator a task with at least one candidate node. (With overlapping
-\* rules the code as found keeps calling the replicator with an EMPTY candidate list: a holder remembered from
-\* an earlier rule does not lower the shortage of a later rule - a phantom shortage that copies nothing.)
-Replicates(d) == \E k \in 1..Len(d.tasks) : Len(d.tasks[k].nodes) > 0
-Quiet(hs) == \A n \in hs : LET d == Decide27(n, hs, {}, {}) IN ~Replicates(d) /\ d.del = "none"
-NoTasks(hs) == \A n \in hs : ~Replicates(Decide27(n, hs, {}, {}))
-a\* a check "replicates" when it hands the replicator a task with at least one candidate node. (With overlapping
-\* rules the code as found keeps calling the replicator with an EMPTY candidate list: a holder remembered from
-\* an earlier rule does not lower the shortage of a later rule - a phantom shortage that copies nothing.)
-Replicates(d) == \E k \in 1..Len(d.tasks) : Len(d.tasks[k].nodes) > 0
-Quiet(hs) == \A n \in hs : LET d == Decide27(n, hs, {}, {}) IN ~Replicates(d) /\ d.del = "none"
-NoTasks(hs) == \A n \in hs : ~Replicates(Decide27(n, hs, {}, {}))
-s\* a check "replicates" when it hands the replicator a task with at least one candidate node. (With overlapping
-\* rules the code as found keeps calling the replicator with an EMPTY candidate list: a holder remembered from
-\* an earlier rule does not lower the shortage of a later rule - a phantom shortage that copies nothing.)
-Replicates(d) == \E k \in 1..Len(d.tasks) : Len(d.tasks[k].nodes) > 0
-Quiet(hs) == \A n \in hs : LET d == Decide27(n, hs, {}, {}) IN ~Replicates(d) /\ d.del = "none"
-NoTasks(hs) == \A n \in hs : ~Replicates(Decide27(n, hs, {}, {}))
-k\* a check "replicates" when it hands the replicator a task with at least one candidate node. (With overlapping
-\* rules the code as found keeps calling the replicator with an EMPTY candidate list: a holder remembered from
-\* an earlier rule does not lower the shortage of a later rule - a phantom shortage that copies nothing.)
-Replicates(d) == \E k \in 1..Len(d.tasks) : Len(d.tasks[k].nodes) > 0
-Quiet(hs) == \A n \in hs : LET d == Decide27(n, hs, {}, {}) IN ~Replicates(d) /\ d.del = "none"
-NoTasks(hs) == \A n \in hs : ~Replicates(Decide27(n, hs, {}, {}))
-s\* a check "replicates" when it hands the replicator a task with at least one candidate node. (With overlapping
-\* rules the code as found keeps calling the replicator with an EMPTY candidate list: a holder remembered from
-\* an earlier rule does not lower the shortage of a later rule - a phantom shortage that copies nothing.)
-Replicates(d) == \E k \in 1..Len(d.tasks) : Len(d.tasks[k].nodes) > 0
-Quiet(hs) == \A n \in hs : LET d == Decide27(n, hs, {}, {}) IN ~Replicates(d) /\ d.del = "none"
-NoTasks(hs) == \A n \in hs : ~Replicates(Decide27(n, hs, {}, {}))
- \* a check "replicates" when it hands the replicator a task with at least one candidate node. (With overlapping
-\* rules the code as found keeps calling the replicator with an EMPTY candidate list: a holder remembered from
-\* an earlier rule does not lower the shortage of a later rule - a phantom shortage that copies nothing.)
-Replicates(d) == \E k \in 1..Len(d.tasks) : Len(d.tasks[k].nodes) > 0
-Quiet(hs) == \A n \in hs : LET d == Decide27(n, hs, {}, {}) IN ~Replicates(d) /\ d.del = "none"
-NoTasks(hs) == \A n \in hs : ~Replicates(Decide27(n, hs, {}, {}))
-|\* a check "replicates" when it hands the replicator a task with at least one candidate node. (With overlapping
-\* rules the code as found keeps calling the replicator with an EMPTY candidate list: a holder remembered from
-\* an earlier rule does not lower the shortage of a later rule - a phantom shortage that copies nothing.)
-Replicates(d) == \E k \in 1..Len(d.tasks) : Len(d.tasks[k].nodes) > 0
-Quiet(hs) == \A n \in hs : LET d == Decide27(n, hs, {}, {}) IN ~Replicates(d) /\ d.del = "none"
-NoTasks(hs) == \A n \in hs : ~Replicates(Decide27(n, hs, {}, {}))
--\* a check "replicates" when it hands the replicator a task with at least one candidate node. (With overlapping
-\* rules the code as found keeps calling the replicator with an EMPTY candidate list: a holder remembered from
-\* an earlier rule does not lower the shortage of a later rule - a phantom shortage that copies nothing.)
-Replicates(d) == \E k \in 1..Len(d.tasks) : Len(d.tasks[k].nodes) > 0
-Quiet(hs) == \A n \in hs : LET d == Decide27(n, hs, {}, {}) IN ~Replicates(d) /\ d.del = "none"
-NoTasks(hs) == \A n \in hs : ~Replicates(Decide27(n, hs, {}, {}))
->\* a check "replicates" when it hands the replicator a task with at least one candidate node. (With overlapping
-\* rules the code as found keeps calling the replicator with an EMPTY candidate list: a holder remembered from
-\* an earlier rule does not lower the shortage of a later rule - a phantom shortage that copies nothing.)
-Replicates(d) == \E k \in 1..Len(d.tasks) : Len(d.tasks[k].nodes) > 0
-Quiet(hs) == \A n \in hs : LET d == Decide27(n, hs, {}, {}) IN ~Replicates(d) /\ d.del = "none"
-NoTasks(hs) == \A n \in hs : ~Replicates(Decide27(n, hs, {}, {}))
- \* a check "replicates" when it hands the replicator a task with at least one candidate node. (With overlapping
-\* rules the code as found keeps calling the replicator with an EMPTY candidate list: a holder remembered from
-\* an earlier rule does not lower the shortage of a later rule - a phantom shortage that copies nothing.)
-Replicates(d) == \E k \in 1..Len(d.tasks) : Len(d.tasks[k].nodes) > 0
-Quiet(hs) == \A n \in hs : LET d == Decide27(n, hs, {}, {}) IN ~Replicates(d) /\ d.del = "none"
-NoTasks(hs) == \A n \in hs : ~Replicates(Decide27(n, hs, {}, {}))
-[\* a check "replicates" when it hands the replicator a task with at least one candidate node. (With overlapping
-\* rules the code as found keeps calling the replicator with an EMPTY candidate list: a holder remembered from
-\* an earlier rule does not lower the shortage of a later rule - a phantom shortage that copies nothing.)
-Replicates(d) == \E k \in 1..Len(d.tasks) : Len(d.tasks[k].nodes) > 0
-Quiet(hs) == \A n \in hs : LET d == Decide27(n, hs, {}, {}) IN ~Replicates(d) /\ d.del = "none"
-NoTasks(hs) == \A n \in hs : ~Replicates(Decide27(n, hs, {}, {}))
-k\* a check "replicates" when it hands the replicator a task with at least one candidate node. (With overlapping
-\* rules the code as found keeps calling the replicator with an EMPTY candidate list: a holder remembered from
-\* an earlier rule does not lower the shortage of a later rule - a phantom shortage that copies nothing.)
-Replicates(d) == \E k \in 1..Len(d.tasks) : Len(d.tasks[k].nodes) > 0
-Quiet(hs) == \A n \in hs : LET d == Decide27(n, hs, {}, {}) IN ~Replicates(d) /\ d.del = "none"
-NoTasks(hs) == \A n \in hs : ~Replicates(Decide27(n, hs, {}, {}))
- \* a check "replicates" when it hands the replicator a task with at least one candidate node. (With overlapping
-\* rules the code as found keeps calling the replicator with an EMPTY candidate list: a holder remembered from
-\* an earlier rule does not lower the shortage of a later rule - a phantom shortage that copies nothing.)
-Replicates(d) == \E k \in 1..Len(d.tasks) : Len(d.tasks[k].nodes) > 0
-Quiet(hs) == \A n \in hs : LET d == Decide27(n, hs, {}, {}) IN ~Replicates(d) /\ d.del = "none"
-NoTasks(hs) == \A n \in hs : ~Replicates(Decide27(n, hs, {}, {}))
-\\* a check "replicates" when it hands the replicator a task with at least one candidate node. (With overlapping
-\* rules the code as found keeps calling the replicator with an EMPTY candidate list: a holder remembered from
-\* an earlier rule does not lower the shortage of a later rule - a phantom shortage that copies nothing.)
-Replicates(d) == \E k \in 1..Len(d.tasks) : Len(d.tasks[k].nodes) > 0
-Quiet(hs) == \A n \in hs : LET d == Decide27(n, hs, {}, {}) IN ~Replicates(d) /\ d.del = "none"
-NoTasks(hs) == \A n \in hs : ~Replicates(Decide27(n, hs, {}, {}))
-i\* a check "replicates" when it hands the replicator a task with at least one candidate node. (With overlapping
-\* rules the code as found keeps calling the replicator with an EMPTY candidate list: a holder remembered from
-\* an earlier rule does not lower the shortage of a later rule - a phantom shortage that copies nothing.)
-Replicates(d) == \E k \in 1..Len(d.tasks) : Len(d.tasks[k].nodes) > 0
-Quiet(hs) == \A n \in hs : LET d == Decide27(n, hs, {}, {}) IN ~Replicates(d) /\ d.del = "none"
-NoTasks(hs) == \A n \in hs : ~Replicates(Decide27(n, hs, {}, {}))
-n\* a check "replicates" when it hands the replicator a task with at least one candidate node. (With overlapping
-\* rules the code as found keeps calling the replicator with an EMPTY candidate list: a holder remembered from
-\* an earlier rule does not lower the shortage of a later rule - a phantom shortage that copies nothing.)
-Replicates(d) == \E k \in 1..Len(d.tasks) : Len(d.tasks[k].nodes) > 0
-Quiet(hs) == \A n \in hs : LET d == Decide27(n, hs, {}, {}) IN ~Replicates(d) /\ d.del = "none"
-NoTasks(hs) == \A n \in hs : ~Replicates(Decide27(n, hs, {}, {}))
- \* a check "replicates" when it hands the replicator a task with at least one candidate node. (With overlapping
-\* rules the code as found keeps calling the replicator with an EMPTY candidate list: a holder remembered from
-\* an earlier rule does not lower the shortage of a later rule - a phantom shortage that copies nothing.)
-Replicates(d) == \E k \in 1..Len(d.tasks) : Len(d.tasks[k].nodes) > 0
-Quiet(hs) == \A n \in hs : LET d == Decide27(n, hs, {}, {}) IN ~Replicates(d) /\ d.del = "none"
-NoTasks(hs) == \A n \in hs : ~Replicates(Decide27(n, hs, {}, {}))
-1\* a check "replicates" when it hands the replicator a task with at least one candidate node. (With overlapping
-\* rules the code as found keeps calling the replicator with an EMPTY candidate list: a holder remembered from
-\* an earlier rule does not lower the shortage of a later rule - a phantom shortage that copies nothing.)
-Replicates(d) == \E k \in 1..Len(d.tasks) : Len(d.tasks[k].nodes) > 0
-Quiet(hs) == \A n \in hs : LET d == Decide27(n, hs, {}, {}) IN ~Replicates(d) /\ d.del = "none"
-NoTasks(hs) == \A n \in hs : ~Replicates(Decide27(n, hs, {}, {}))
-.\* a check "replicates" when it hands the replicator a task with at least one candidate node. (With overlapping
-\* rules the code as found keeps calling the replicator with an EMPTY candidate list: a holder remembered from
-\* an earlier rule does not lower the shortage of a later rule - a phantom shortage that copies nothing.)
-Replicates(d) == \E k \in 1..Len(d.tasks) : Len(d.tasks[k].nodes) > 0
-Quiet(hs) == \A n \in hs : LET d == Decide27(n, hs, {}, {}) IN ~Replicates(d) /\ d.del = "none"
-NoTasks(hs) == \A n \in hs : ~Replicates(Decide27(n, hs, {}, {}))
-.\* a check "replicates" when it hands the replicator a task with at least one candidate node. (With overlapping
-\* rules the code as found keeps calling the replicator with an EMPTY candidate list: a holder remembered from
-\* an earlier rule does not lower the shortage of a later rule - a phantom shortage that copies nothing.)
-Replicates(d) == \E k \in 1..Len(d.tasks) : Len(d.tasks[k].nodes) > 0
-Quiet(hs) == \A n \in hs : LET d == Decide27(n, hs, {}, {}) IN ~Replicates(d) /\ d.del = "none"
-NoTasks(hs) == \A n \in hs : ~Replicates(Decide27(n, hs, {}, {}))
-L\* a check "replicates" when it hands the replicator a task with at least one candidate node. (With overlapping
-\* rules the code as found keeps calling the replicator with an EMPTY candidate list: a holder remembered from
-\* an earlier rule does not lower the shortage of a later rule - a phantom shortage that copies nothing.)
-Replicates(d) == \E k \in 1..Len(d.tasks) : Len(d.tasks[k].nodes) > 0
-Quiet(hs) == \A n \in hs : LET d == Decide27(n, hs, {}, {}) IN ~Replicates(d) /\ d.del = "none"
-NoTasks(hs) == \A n \in hs : ~Replicates(Decide27(n, hs, {}, {}))
-e\* a check "replicates" when it hands the replicator a task with at least one candidate node. (With overlapping
-\* rules the code as found keeps calling the replicator with an EMPTY candidate list: a holder remembered from
-\* an earlier rule does not lower the shortage of a later rule - a phantom shortage that copies nothing.)
-Replicates(d) == \E k \in 1..Len(d.tasks) : Len(d.tasks[k].nodes) > 0
-Quiet(hs) == \A n \in hs : LET d == Decide27(n, hs, {}, {}) IN ~Replicates(d) /\ d.del = "none"
-NoTasks(hs) == \A n \in hs : ~Replicates(Decide27(n, hs, {}, {}))
-n\* a check "replicates" when it hands the replicator a task with at least one candidate node. (With overlapping
-\* rules the code as found keeps calling the replicator with an EMPTY candidate list: a holder remembered from
-\* an earlier rule does not lower the shortage of a later rule - a phantom shortage that copies nothing.)
-Replicates(d) == \E k \in 1..Len(d.tasks) : Len(d.tasks[k].nodes) > 0
-Quiet(hs) == \A n \in hs : LET d == Decide27(n, hs, {}, {}) IN ~Replicates(d) /\ d.del = "none"
-NoTasks(hs) == \A n \in hs : ~Replicates(Decide27(n, hs, {}, {}))
-(\* a check "replicates" when it hands the replicator a task with at least one candidate node. (With overlapping
-\* rules the code as found keeps calling the replicator with an EMPTY candidate list: a holder remembered from
-\* an earlier rule does not lower the shortage of a later rule - a phantom shortage that copies nothing.)
-Replicates(d) == \E k \in 1..Len(d.tasks) : Len(d.tasks[k].nodes) > 0
-Quiet(hs) == \A n \in hs : LET d == Decide27(n, hs, {}, {}) IN ~Replicates(d) /\ d.del = "none"
-NoTasks(hs) == \A n \in hs : ~Replicates(Decide27(n, hs, {}, {}))
-f\* a check "replicates" when it hands the replicator a task with at least one candidate node. (With overlapping
-\* rules the code as found keeps calling the replicator with an EMPTY candidate list: a holder remembered from
-\* an earlier rule does not lower the shortage of a later rule - a phantom shortage that copies nothing.)
-Replicates(d) == \E k \in 1..Len(d.tasks) : Len(d.tasks[k].nodes) > 0
-Quiet(hs) == \A n \in hs : LET d == Decide27(n, hs, {}, {}) IN ~Replicates(d) /\ d.del = "none"
-NoTasks(hs) == \A n \in hs : ~Replicates(Decide27(n, hs, {}, {}))
-.\* a check "replicates" when it hands the replicator a task with at least one candidate node. (With overlapping
-\* rules the code as found keeps calling the replicator with an EMPTY candidate list: a holder remembered from
-\* an earlier rule does not lower the shortage of a later rule - a phantom shortage that copies nothing.)
-Replicates(d) == \E k \in 1..Len(d.tasks) : Len(d.tasks[k].nodes) > 0
-Quiet(hs) == \A n \in hs : LET d == Decide27(n, hs, {}, {}) IN ~Replicates(d) /\ d.del = "none"
-NoTasks(hs) == \A n \in hs : ~Replicates(Decide27(n, hs, {}, {}))
-t\* a check "replicates" when it hands the replicator a task with at least one candidate node. (With overlapping
-\* rules the code as found keeps calling the replicator with an EMPTY candidate list: a holder remembered from
-\* an earlier rule does not lower the shortage of a later rule - a phantom shortage that copies nothing.)
-Replicates(d) == \E k \in 1..Len(d.tasks) : Len(d.tasks[k].nodes) > 0
-Quiet(hs) == \A n \in hs : LET d == Decide27(n, hs, {}, {}) IN ~Replicates(d) /\ d.del = "none"
-NoTasks(hs) == \A n \in hs : ~Replicates(Decide27(n, hs, {}, {}))
-a\* a check "replicates" when it hands the replicator a task with at least one candidate node. (With overlapping
-\* rules the code as found keeps calling the replicator with an EMPTY candidate list: a holder remembered from
-\* an earlier rule does not lower the shortage of a later rule - a phantom shortage that copies nothing.)
-Replicates(d) == \E k \in 1..Len(d.tasks) : Len(d.tasks[k].nodes) > 0
-Quiet(hs) == \A n \in hs : LET d == Decide27(n, hs, {}, {}) IN ~Replicates(d) /\ d.del = "none"
-NoTasks(hs) == \A n \in hs : ~Replicates(Decide27(n, hs, {}, {}))
-s\* a check "replicates" when it hands the replicator a task with at least one candidate node. (With overlapping
-\* rules the code as found keeps calling the replicator with an EMPTY candidate list: a holder remembered from
-\* an earlier rule does not lower the shortage of a later rule - a phantom shortage that copies nothing.)
-Replicates(d) == \E k \in 1..Len(d.tasks) : Len(d.tasks[k].nodes) > 0
-Quiet(hs) == \A n \in hs : LET d == Decide27(n, hs, {}, {}) IN ~Replicates(d) /\ d.del = "none"
-NoTasks(hs) == \A n \in hs : ~Replicates(Decide27(n, hs, {}, {}))
-k\* a check "replicates" when it hands the replicator a task with at least one candidate node. (With overlapping
-\* rules the code as found keeps calling the replicator with an EMPTY candidate list: a holder remembered from
-\* an earlier rule does not lower the shortage of a later rule - a phantom shortage that copies nothing.)
-Replicates(d) == \E k \in 1..Len(d.tasks) : Len(d.tasks[k].nodes) > 0
-Quiet(hs) == \A n \in hs : LET d == Decide27(n, hs, {}, {}) IN ~Replicates(d) /\ d.del = "none"
-NoTasks(hs) == \A n \in hs : ~Replicates(Decide27(n, hs, {}, {}))
-s\* a check "replicates" when it hands the replicator a task with at least one candidate node. (With overlapping
-\* rules the code as found keeps calling the replicator with an EMPTY candidate list: a holder remembered from
-\* an earlier rule does not lower the shortage of a later rule - a phantom shortage that copies nothing.)
-Replicates(d) == \E k \in 1..Len(d.tasks) : Len(d.tasks[k].nodes) > 0
-Quiet(hs) == \A n \in hs : LET d == Decide27(n, hs, {}, {}) IN ~Replicates(d) /\ d.del = "none"
-NoTasks(hs) == \A n \in hs : ~Replicates(Decide27(n, hs, {}, {}))
-)\* a check "replicates" when it hands the replicator a task with at least one candidate node. (With overlapping
-\* rules the code as found keeps calling the replicator with an EMPTY candidate list: a holder remembered from
-\* an earlier rule does not lower the shortage of a later rule - a phantom shortage that copies nothing.)
-Replicates(d) == \E k \in 1..Len(d.tasks) : Len(d.tasks[k].nodes) > 0
-Quiet(hs) == \A n \in hs : LET d == Decide27(n, hs, {}, {}) IN ~Replicates(d) /\ d.del = "none"
-NoTasks(hs) == \A n \in hs : ~Replicates(Decide27(n, hs, {}, {}))
- \* a check "replicates" when it hands the replicator a task with at least one candidate node. (With overlapping
-\* rules the code as found keeps calling the replicator with an EMPTY candidate list: a holder remembered from
-\* an earlier rule does not lower the shortage of a later rule - a phantom shortage that copies nothing.)
-Replicates(d) == \E k \in 1..Len(d.tasks) : Len(d.tasks[k].nodes) > 0
-Quiet(hs) == \A n \in hs : LET d == Decide27(n, hs, {}, {}) IN ~Replicates(d) /\ d.del = "none"
-NoTasks(hs) == \A n \in hs : ~Replicates(Decide27(n, hs, {}, {}))
-|\* a check "replicates" when it hands the replicator a task with at least one candidate node. (With overlapping
-\* rules the code as found keeps calling the replicator with an EMPTY candidate list: a holder remembered from
-\* an earlier rule does not lower the shortage of a later rule - a phantom shortage that copies nothing.)
-Replicates(d) == \E k \in 1..Len(d.tasks) : Len(d.tasks[k].nodes) > 0
-Quiet(hs) == \A n \in hs : LET d == Decide27(n, hs, {}, {}) IN ~Replicates(d) /\ d.del = "none"
-NoTasks(hs) == \A n \in hs : ~Replicates(Decide27(n, hs, {}, {}))
--\* a check "replicates" when it hands the replicator a task with at least one candidate node. (With overlapping
-\* rules the code as found keeps calling the replicator with an EMPTY candidate list: a holder remembered from
-\* an earlier rule does not lower the shortage of a later rule - a phantom shortage that copies nothing.)
-Replicates(d) == \E k \in 1..Len(d.tasks) : Len(d.tasks[k].nodes) > 0
-Quiet(hs) == \A n \in hs : LET d == Decide27(n, hs, {}, {}) IN ~Replicates(d) /\ d.del = "none"
-NoTasks(hs) == \A n \in hs : ~Replicates(Decide27(n, hs, {}, {}))
->\* a check "replicates" when it hands the replicator a task with at least one candidate node. (With overlapping
-\* rules the code as found keeps calling the replicator with an EMPTY candidate list: a holder remembered from
-\* an earlier rule does not lower the shortage of a later rule - a phantom shortage that copies nothing.)
-Replicates(d) == \E k \in 1..Len(d.tasks) : Len(d.tasks[k].nodes) > 0
-Quiet(hs) == \A n \in hs : LET d == Decide27(n, hs, {}, {}) IN ~Replicates(d) /\ d.del = "none"
-NoTasks(hs) == \A n \in hs : ~Replicates(Decide27(n, hs, {}, {}))
- \* a check "replicates" when it hands the replicator a task with at least one candidate node. (With overlapping
-\* rules the code as found keeps calling the replicator with an EMPTY candidate list: a holder remembered from
-\* an earlier rule does not lower the shortage of a later rule - a phantom shortage that copies nothing.)
-Replicates(d) == \E k \in 1..Len(d.tasks) : Len(d.tasks[k].nodes) > 0
-Quiet(hs) == \A n \in hs : LET d == Decide27(n, hs, {}, {}) IN ~Replicates(d) /\ d.del = "none"
-NoTasks(hs) == \A n \in hs : ~Replicates(Decide27(n, hs, {}, {}))
-[\* a check "replicates" when it hands the replicator a task with at least one candidate node. (With overlapping
-\* rules the code as found keeps calling the replicator with an EMPTY candidate list: a holder remembered from
-\* an earlier rule does not lower the shortage of a later rule - a phantom shortage that copies nothing.)
-Replicates(d) == \E k \in 1..Len(d.tasks) : Len(d.tasks[k].nodes) > 0
-Quiet(hs) == \A n \in hs : LET d == Decide27(n, hs, {}, {}) IN ~Replicates(d) /\ d.del = "none"
-NoTasks(hs) == \A n \in hs : ~Replicates(Decide27(n, hs, {}, {}))
-q\* a check "replicates" when it hands the replicator a task with at least one candidate node. (With overlapping
-\* rules the code as found keeps calling the replicator with an EMPTY candidate list: a holder remembered from
-\* an earlier rule does not lower the shortage of a later rule - a phantom shortage that copies nothing.)
-Replicates(d) == \E k \in 1..Len(d.tasks) : Len(d.tasks[k].nodes) > 0
-Quiet(hs) == \A n \in hs : LET d == Decide27(n, hs, {}, {}) IN ~Replicates(d) /\ d.del = "none"
-NoTasks(hs) == \A n \in hs : ~Replicates(Decide27(n, hs, {}, {}))
- \* a check "replicates" when it hands the replicator a task with at least one candidate node. (With overlapping
-\* rules the code as found keeps calling the replicator with an EMPTY candidate list: a holder remembered from
-\* an earlier rule does not lower the shortage of a later rule - a phantom shortage that copies nothing.)
-Replicates(d) == \E k \in 1..Len(d.tasks) : Len(d.tasks[k].nodes) > 0
-Quiet(hs) == \A n \in hs : LET d == Decide27(n, hs, {}, {}) IN ~Replicates(d) /\ d.del = "none"
-NoTasks(hs) == \A n \in hs : ~Replicates(Decide27(n, hs, {}, {}))
-|\* a check "replicates" when it hands the replicator a task with at least one candidate node. (With overlapping
-\* rules the code as found keeps calling the replicator with an EMPTY candidate list: a holder remembered from
-\* an earlier rule does not lower the shortage of a later rule - a phantom shortage that copies nothing.)
-Replicates(d) == \E k \in 1..Len(d.tasks) : Len(d.tasks[k].nodes) > 0
-Quiet(hs) == \A n \in hs : LET d == Decide27(n, hs, {}, {}) IN ~Replicates(d) /\ d.del = "none"
-NoTasks(hs) == \A n \in hs : ~Replicates(Decide27(n, hs, {}, {}))
--\* a check "replicates" when it hands the replicator a task with at least one candidate node. (With overlapping
-\* rules the code as found keeps calling the replicator with an EMPTY candidate list: a holder remembered from
-\* an earlier rule does not lower the shortage of a later rule - a phantom shortage that copies nothing.)
-Replicates(d) == \E k \in 1..Len(d.tasks) : Len(d.tasks[k].nodes) > 0
-Quiet(hs) == \A n \in hs : LET d == Decide27(n, hs, {}, {}) IN ~Replicates(d) /\ d.del = "none"
-NoTasks(hs) == \A n \in hs : ~Replicates(Decide27(n, hs, {}, {}))
->\* a check "replicates" when it hands the replicator a task with at least one candidate node. (With overlapping
-\* rules the code as found keeps calling the replicator with an EMPTY candidate list: a holder remembered from
-\* an earlier rule does not lower the shortage of a later rule - a phantom shortage that copies nothing.)
-Replicates(d) == \E k \in 1..Len(d.tasks) : Len(d.tasks[k].nodes) > 0
-Quiet(hs) == \A n \in hs : LET d == Decide27(n, hs, {}, {}) IN ~Replicates(d) /\ d.del = "none"
-NoTasks(hs) == \A n \in hs : ~Replicates(Decide27(n, hs, {}, {}))
- \* a check "replicates" when it hands the replicator a task with at least one candidate node. (With overlapping
-\* rules the code as found keeps calling the replicator with an EMPTY candidate list: a holder remembered from
-\* an earlier rule does not lower the shortage of a later rule - a phantom shortage that copies nothing.)
-Replicates(d) == \E k \in 1..Len(d.tasks) : Len(d.tasks[k].nodes) > 0
-Quiet(hs) == \A n \in hs : LET d == Decide27(n, hs, {}, {}) IN ~Replicates(d) /\ d.del = "none"
-NoTasks(hs) == \A n \in hs : ~Replicates(Decide27(n, hs, {}, {}))
-f\* a check "replicates" when it hands the replicator a task with at least one candidate node. (With overlapping
-\* rules the code as found keeps calling the replicator with an EMPTY candidate list: a holder remembered from
-\* an earlier rule does not lower the shortage of a later rule - a phantom shortage that copies nothing.)
-Replicates(d) == \E k \in 1..Len(d.tasks) : Len(d.tasks[k].nodes) > 0
-Quiet(hs) == \A n \in hs : LET d == Decide27(n, hs, {}, {}) IN ~Replicates(d) /\ d.del = "none"
-NoTasks(hs) == \A n \in hs : ~Replicates(Decide27(n, hs, {}, {}))
-.\* a check "replicates" when it hands the replicator a task with at least one candidate node. (With overlapping
-\* rules the code as found keeps calling the replicator with an EMPTY candidate list: a holder remembered from
-\* an earlier rule does not lower the shortage of a later rule - a phantom shortage that copies nothing.)
-Replicates(d) == \E k \in 1..Len(d.tasks) : Len(d.tasks[k].nodes) > 0
-Quiet(hs) == \A n \in hs : LET d == Decide27(n, hs, {}, {}) IN ~Replicates(d) /\ d.del = "none"
-NoTasks(hs) == \A n \in hs : ~Replicates(Decide27(n, hs, {}, {}))
-t\* a check "replicates" when it hands the replicator a task with at least one candidate node. (With overlapping
-\* rules the code as found keeps calling the replicator with an EMPTY candidate list: a holder remembered from
-\* an earlier rule does not lower the shortage of a later rule - a phantom shortage that copies nothing.)
-Replicates(d) == \E k \in 1..Len(d.tasks) : Len(d.tasks[k].nodes) > 0
-Quiet(hs) == \A n \in hs : LET d == Decide27(n, hs, {}, {}) IN ~Replicates(d) /\ d.del = "none"
-NoTasks(hs) == \A n \in hs : ~Replicates(Decide27(n, hs, {}, {}))
-a\* a check "replicates" when it hands the replicator a task with at least one candidate node. (With overlapping
-\* rules the code as found keeps calling the replicator with an EMPTY candidate list: a holder remembered from
-\* an earlier rule does not lower the shortage of a later rule - a phantom shortage that copies nothing.)
-Replicates(d) == \E k \in 1..Len(d.tasks) : Len(d.tasks[k].nodes) > 0
-Quiet(hs) == \A n \in hs : LET d == Decide27(n, hs, {}, {}) IN ~Replicates(d) /\ d.del = "none"
-NoTasks(hs) == \A n \in hs : ~Replicates(Decide27(n, hs, {}, {}))
-s\* a check "replicates" when it hands the replicator a task with at least one candidate node. (With overlapping
-\* rules the code as found keeps calling the replicator with an EMPTY candidate list: a holder remembered from
-\* an earlier rule does not lower the shortage of a later rule - a phantom shortage that copies nothing.)
-Replicates(d) == \E k \in 1..Len(d.tasks) : Len(d.tasks[k].nodes) > 0
-Quiet(hs) == \A n \in hs : LET d == Decide27(n, hs, {}, {}) IN ~Replicates(d) /\ d.del = "none"
-NoTasks(hs) == \A n \in hs : ~Replicates(Decide27(n, hs, {}, {}))
-k\* a check "replicates" when it hands the replicator a task with at least one candidate node. (With overlapping
-\* rules the code as found keeps calling the replicator with an EMPTY candidate list: a holder remembered from
-\* an earlier rule does not lower the shortage of a later rule - a phantom shortage that copies nothing.)
-Replicates(d) == \E k \in 1..Len(d.tasks) : Len(d.tasks[k].nodes) > 0
-Quiet(hs) == \A n \in hs : LET d == Decide27(n, hs, {}, {}) IN ~Replicates(d) /\ d.del = "none"
-NoTasks(hs) == \A n \in hs : ~Replicates(Decide27(n, hs, {}, {}))
-s\* a check "replicates" when it hands the replicator a task with at least one candidate node. (With overlapping
-\* rules the code as found keeps calling the replicator with an EMPTY candidate list: a holder remembered from
-\* an earlier rule does not lower the shortage of a later rule - a phantom shortage that copies nothing.)
-Replicates(d) == \E k \in 1..Len(d.tasks) : Len(d.tasks[k].nodes) > 0
-Quiet(hs) == \A n \in hs : LET d == Decide27(n, hs, {}, {}) IN ~Replicates(d) /\ d.del = "none"
-NoTasks(hs) == \A n \in hs : ~Replicates(Decide27(n, hs, {}, {}))
-[\* a check "replicates" when it hands the replicator a task with at least one candidate node. (With overlapping
-\* rules the code as found keeps calling the replicator with an EMPTY candidate list: a holder remembered from
-\* an earlier rule does not lower the shortage of a later rule - a phantom shortage that copies nothing.)
-Replicates(d) == \E k \in 1..Len(d.tasks) : Len(d.tasks[k].nodes) > 0
-Quiet(hs) == \A n \in hs : LET d == Decide27(n, hs, {}, {}) IN ~Replicates(d) /\ d.del = "none"
-NoTasks(hs) == \A n \in hs : ~Replicates(Decide27(n, hs, {}, {}))
-k\* a check "replicates" when it hands the replicator a task with at least one candidate node. (With overlapping
-\* rules the code as found keeps calling the replicator with an EMPTY candidate list: a holder remembered from
-\* an earlier rule does not lower the shortage of a later rule - a phantom shortage that copies nothing.)
-Replicates(d) == \E k \in 1..Len(d.tasks) : Len(d.tasks[k].nodes) > 0
-Quiet(hs) == \A n \in hs : LET d == Decide27(n, hs, {}, {}) IN ~Replicates(d) /\ d.del = "none"
-NoTasks(hs) == \A n \in hs : ~Replicates(Decide27(n, hs, {}, {}))
-]\* a check "replicates" when it hands the replicator a task with at least one candidate node. (With overlapping
-\* rules the code as found keeps calling the replicator with an EMPTY candidate list: a holder remembered from
-\* an earlier rule does not lower the shortage of a later rule - a phantom shortage that copies nothing.)
-Replicates(d) == \E k \in 1..Len(d.tasks) : Len(d.tasks[k].nodes) > 0
-Quiet(hs) == \A n \in hs : LET d == Decide27(n, hs, {}, {}) IN ~Replicates(d) /\ d.del = "none"
-NoTasks(hs) == \A n \in hs : ~Replicates(Decide27(n, hs, {}, {}))
-.\* a check "replicates" when it hands the replicator a task with at least one candidate node. (With overlapping
-\* rules the code as found keeps calling the replicator with an EMPTY candidate list: a holder remembered from
-\* an earlier rule does not lower the shortage of a later rule - a phantom shortage that copies nothing.)
-Replicates(d) == \E k \in 1..Len(d.tasks) : Len(d.tasks[k].nodes) > 0
-Quiet(hs) == \A n \in hs : LET d == Decide27(n, hs, {}, {}) IN ~Replicates(d) /\ d.del = "none"
-NoTasks(hs) == \A n \in hs : ~Replicates(Decide27(n, hs, {}, {}))
-q\* a check "replicates" when it hands the replicator a task with at least one candidate node. (With overlapping
-\* rules the code as found keeps calling the replicator with an EMPTY candidate list: a holder remembered from
-\* an earlier rule does not lower the shortage of a later rule - a phantom shortage that copies nothing.)
-Replicates(d) == \E k \in 1..Len(d.tasks) : Len(d.tasks[k].nodes) > 0
-Quiet(hs) == \A n \in hs : LET d == Decide27(n, hs, {}, {}) IN ~Replicates(d) /\ d.del = "none"
-NoTasks(hs) == \A n \in hs : ~Replicates(Decide27(n, hs, {}, {}))
-,\* a check "replicates" when it hands the replicator a task with at least one candidate node. (With overlapping
-\* rules the code as found keeps calling the replicator with an EMPTY candidate list: a holder remembered from
-\* an earlier rule does not lower the shortage of a later rule - a phantom shortage that copies nothing.)
-Replicates(d) == \E k \in 1..Len(d.tasks) : Len(d.tasks[k].nodes) > 0
-Quiet(hs) == \A n \in hs : LET d == Decide27(n, hs, {}, {}) IN ~Replicates(d) /\ d.del = "none"
-NoTasks(hs) == \A n \in hs : ~Replicates(Decide27(n, hs, {}, {}))
- \* a check "replicates" when it hands the replicator a task with at least one candidate node. (With overlapping
-\* rules the code as found keeps calling the replicator with an EMPTY candidate list: a holder remembered from
-\* an earlier rule does not lower the shortage of a later rule - a phantom shortage that copies nothing.)
-Replicates(d) == \E k \in 1..Len(d.tasks) : Len(d.tasks[k].nodes) > 0
-Quiet(hs) == \A n \in hs : LET d == Decide27(n, hs, {}, {}) IN ~Replicates(d) /\ d.del = "none"
-NoTasks(hs) == \A n \in hs : ~Replicates(Decide27(n, hs, {}, {}))
-n\* a check "replicates" when it hands the replicator a task with at least one candidate node. (With overlapping
-\* rules the code as found keeps calling the replicator with an EMPTY candidate list: a holder remembered from
-\* an earlier rule does not lower the shortage of a later rule - a phantom shortage that copies nothing.)
-Replicates(d) == \E k \in 1..Len(d.tasks) : Len(d.tasks[k].nodes) > 0
-Quiet(hs) == \A n \in hs : LET d == Decide27(n, hs, {}, {}) IN ~Replicates(d) /\ d.del = "none"
-NoTasks(hs) == \A n \in hs : ~Replicates(Decide27(n, hs, {}, {}))
-o\* a check "replicates" when it hands the replicator a task with at least one candidate node. (With overlapping
-\* rules the code as found keeps calling the replicator with an EMPTY candidate list: a holder remembered from
-\* an earlier rule does not lower the shortage of a later rule - a phantom shortage that copies nothing.)
-Replicates(d) == \E k \in 1..Len(d.tasks) : Len(d.tasks[k].nodes) > 0
-Quiet(hs) == \A n \in hs : LET d == Decide27(n, hs, {}, {}) IN ~Replicates(d) /\ d.del = "none"
-NoTasks(hs) == \A n \in hs : ~Replicates(Decide27(n, hs, {}, {}))
-d\* a check "replicates" when it hands the replicator a task with at least one candidate node. (With overlapping
-\* rules the code as found keeps calling the replicator with an EMPTY candidate list: a holder remembered from
-\* an earlier rule does not lower the shortage of a later rule - a phantom shortage that copies nothing.)
-Replicates(d) == \E k \in 1..Len(d.tasks) : Len(d.tasks[k].nodes) > 0
-Quiet(hs) == \A n \in hs : LET d == Decide27(n, hs, {}, {}) IN ~Replicates(d) /\ d.del = "none"
-NoTasks(hs) == \A n \in hs : ~Replicates(Decide27(n, hs, {}, {}))
-e\* a check "replicates" when it hands the replicator a task with at least one candidate node. (With overlapping
-\* rules the code as found keeps calling the replicator with an EMPTY candidate list: a holder remembered from
-\* an earlier rule does not lower the shortage of a later rule - a phantom shortage that copies nothing.)
-Replicates(d) == \E k \in 1..Len(d.tasks) : Len(d.tasks[k].nodes) > 0
-Quiet(hs) == \A n \in hs : LET d == Decide27(n, hs, {}, {}) IN ~Replicates(d) /\ d.del = "none"
-NoTasks(hs) == \A n \in hs : ~Replicates(Decide27(n, hs, {}, {}))
-s\* a check "replicates" when it hands the replicator a task with at least one candidate node. (With overlapping
-\* rules the code as found keeps calling the replicator with an EMPTY candidate list: a holder remembered from
-\* an earlier rule does not lower the shortage of a later rule - a phantom shortage that copies nothing.)
-Replicates(d) == \E k \in 1..Len(d.tasks) : Len(d.tasks[k].nodes) > 0
-Quiet(hs) == \A n \in hs : LET d == Decide27(n, hs, {}, {}) IN ~Replicates(d) /\ d.del = "none"
-NoTasks(hs) == \A n \in hs : ~Replicates(Decide27(n, hs, {}, {}))
- \* a check "replicates" when it hands the replicator a task with at least one candidate node. (With overlapping
-\* rules the code as found keeps calling the replicator with an EMPTY candidate list: a holder remembered from
-\* an earlier rule does not lower the shortage of a later rule - a phantom shortage that copies nothing.)
-Replicates(d) == \E k \in 1..Len(d.tasks) : Len(d.tasks[k].nodes) > 0
-Quiet(hs) == \A n \in hs : LET d == Decide27(n, hs, {}, {}) IN ~Replicates(d) /\ d.del = "none"
-NoTasks(hs) == \A n \in hs : ~Replicates(Decide27(n, hs, {}, {}))
-|\* a check "replicates" when it hands the replicator a task with at least one candidate node. (With overlapping
-\* rules the code as found keeps calling the replicator with an EMPTY candidate list: a holder remembered from
-\* an earlier rule does not lower the shortage of a later rule - a phantom shortage that copies nothing.)
-Replicates(d) == \E k \in 1..Len(d.tasks) : Len(d.tasks[k].nodes) > 0
-Quiet(hs) == \A n \in hs : LET d == Decide27(n, hs, {}, {}) IN ~Replicates(d) /\ d.del = "none"
-NoTasks(hs) == \A n \in hs : ~Replicates(Decide27(n, hs, {}, {}))
--\* a check "replicates" when it hands the replicator a task with at least one candidate node. (With overlapping
-\* rules the code as found keeps calling the replicator with an EMPTY candidate list: a holder remembered from
-\* an earlier rule does not lower the shortage of a later rule - a phantom shortage that copies nothing.)
-Replicates(d) == \E k \in 1..Len(d.tasks) : Len(d.tasks[k].nodes) > 0
-Quiet(hs) == \A n \in hs : LET d == Decide27(n, hs, {}, {}) IN ~Replicates(d) /\ d.del = "none"
-NoTasks(hs) == \A n \in hs : ~Replicates(Decide27(n, hs, {}, {}))
->\* a check "replicates" when it hands the replicator a task with at least one candidate node. (With overlapping
-\* rules the code as found keeps calling the replicator with an EMPTY candidate list: a holder remembered from
-\* an earlier rule does not lower the shortage of a later rule - a phantom shortage that copies nothing.)
-Replicates(d) == \E k \in 1..Len(d.tasks) : Len(d.tasks[k].nodes) > 0
-Quiet(hs) == \A n \in hs : LET d == Decide27(n, hs, {}, {}) IN ~Replicates(d) /\ d.del = "none"
-NoTasks(hs) == \A n \in hs : ~Replicates(Decide27(n, hs, {}, {}))
- \* a check "replicates" when it hands the replicator a task with at least one candidate node. (With overlapping
-\* rules the code as found keeps calling the replicator with an EMPTY candidate list: a holder remembered from
-\* an earlier rule does not lower the shortage of a later rule - a phantom shortage that copies nothing.)
-Replicates(d) == \E k \in 1..Len(d.tasks) : Len(d.tasks[k].nodes) > 0
-Quiet(hs) == \A n \in hs : LET d == Decide27(n, hs, {}, {}) IN ~Replicates(d) /\ d.del = "none"
-NoTasks(hs) == \A n \in hs : ~Replicates(Decide27(n, hs, {}, {}))
-M\* a check "replicates" when it hands the replicator a task with at least one candidate node. (With overlapping
-\* rules the code as found keeps calling the replicator with an EMPTY candidate list: a holder remembered from
-\* an earlier rule does not lower the shortage of a later rule - a phantom shortage that copies nothing.)
-Replicates(d) == \E k \in 1..Len(d.tasks) : Len(d.tasks[k].nodes) > 0
-Quiet(hs) == \A n \in hs : LET d == Decide27(n, hs, {}, {}) IN ~Replicates(d) /\ d.del = "none"
-NoTasks(hs) == \A n \in hs : ~Replicates(Decide27(n, hs, {}, {}))
-a\* a check "replicates" when it hands the replicator a task with at least one candidate node. (With overlapping
-\* rules the code as found keeps calling the replicator with an EMPTY candidate list: a holder remembered from
-\* an earlier rule does not lower the shortage of a later rule - a phantom shortage that copies nothing.)
-Replicates(d) == \E k \in 1..Len(d.tasks) : Len(d.tasks[k].nodes) > 0
-Quiet(hs) == \A n \in hs : LET d == Decide27(n, hs, {}, {}) IN ~Replicates(d) /\ d.del = "none"
-NoTasks(hs) == \A n \in hs : ~Replicates(Decide27(n, hs, {}, {}))
-p\* a check "replicates" when it hands the replicator a task with at least one candidate node. (With overlapping
-\* rules the code as found keeps calling the replicator with an EMPTY candidate list: a holder remembered from
-\* an earlier rule does not lower the shortage of a later rule - a phantom shortage that copies nothing.)
-Replicates(d) == \E k \in 1..Len(d.tasks) : Len(d.tasks[k].nodes) > 0
-Quiet(hs) == \A n \in hs : LET d == Decide27(n, hs, {}, {}) IN ~Replicates(d) /\ d.del = "none"
-NoTasks(hs) == \A n \in hs : ~Replicates(Decide27(n, hs, {}, {}))
-S\* a check "replicates" when it hands the replicator a task with at least one candidate node. (With overlapping
-\* rules the code as found keeps calling the replicator with an EMPTY candidate list: a holder remembered from
-\* an earlier rule does not lower the shortage of a later rule - a phantom shortage that copies nothing.)
-Replicates(d) == \E k \in 1..Len(d.tasks) : Len(d.tasks[k].nodes) > 0
-Quiet(hs) == \A n \in hs : LET d == Decide27(n, hs, {}, {}) IN ~Replicates(d) /\ d.del = "none"
-NoTasks(hs) == \A n \in hs : ~Replicates(Decide27(n, hs, {}, {}))
-e\* a check "replicates" when it hands the replicator a task with at least one candidate node. (With overlapping
-\* rules the code as found keeps calling the replicator with an EMPTY candidate list: a holder remembered from
-\* an earlier rule does not lower the shortage of a later rule - a phantom shortage that copies nothing.)
-Replicates(d) == \E k \in 1..Len(d.tasks) : Len(d.tasks[k].nodes) > 0
-Quiet(hs) == \A n \in hs : LET d == Decide27(n, hs, {}, {}) IN ~Replicates(d) /\ d.del = "none"
-NoTasks(hs) == \A n \in hs : ~Replicates(Decide27(n, hs, {}, {}))
-q\* a check "replicates" when it hands the replicator a task with at least one candidate node. (With overlapping
-\* rules the code as found keeps calling the replicator with an EMPTY candidate list: a holder remembered from
-\* an earlier rule does not lower the shortage of a later rule - a phantom shortage that copies nothing.)
-Replicates(d) == \E k \in 1..Len(d.tasks) : Len(d.tasks[k].nodes) > 0
-Quiet(hs) == \A n \in hs : LET d == Decide27(n, hs, {}, {}) IN ~Replicates(d) /\ d.del = "none"
-NoTasks(hs) == \A n \in hs : ~Replicates(Decide27(n, hs, {}, {}))
-(\* a check "replicates" when it hands the replicator a task with at least one candidate node. (With overlapping
-\* rules the code as found keeps calling the replicator with an EMPTY candidate list: a holder remembered from
-\* an earlier rule does not lower the shortage of a later rule - a phantom shortage that copies nothing.)
-Replicates(d) == \E k \in 1..Len(d.tasks) : Len(d.tasks[k].nodes) > 0
-Quiet(hs) == \A n \in hs : LET d == Decide27(n, hs, {}, {}) IN ~Replicates(d) /\ d.del = "none"
-NoTasks(hs) == \A n \in hs : ~Replicates(Decide27(n, hs, {}, {}))
-n\* a check "replicates" when it hands the replicator a task with at least one candidate node. (With overlapping
-\* rules the code as found keeps calling the replicator with an EMPTY candidate list: a holder remembered from
-\* an earlier rule does not lower the shortage of a later rule - a phantom shortage that copies nothing.)
-Replicates(d) == \E k \in 1..Len(d.tasks) : Len(d.tasks[k].nodes) > 0
-Quiet(hs) == \A n \in hs : LET d == Decide27(n, hs, {}, {}) IN ~Replicates(d) /\ d.del = "none"
-NoTasks(hs) == \A n \in hs : ~Replicates(Decide27(n, hs, {}, {}))
-,\* a check "replicates" when it hands the replicator a task with at least one candidate node. (With overlapping
-\* rules the code as found keeps calling the replicator with an EMPTY candidate list: a holder remembered from
-\* an earlier rule does not lower the shortage of a later rule - a phantom shortage that copies nothing.)
-Replicates(d) == \E k \in 1..Len(d.tasks) : Len(d.tasks[k].nodes) > 0
-Quiet(hs) == \A n \in hs : LET d == Decide27(n, hs, {}, {}) IN ~Replicates(d) /\ d.del = "none"
-NoTasks(hs) == \A n \in hs : ~Replicates(Decide27(n, hs, {}, {}))
- \* a check "replicates" when it hands the replicator a task with at least one candidate node. (With overlapping
-\* rules the code as found keeps calling the replicator with an EMPTY candidate list: a holder remembered from
-\* an earlier rule does not lower the shortage of a later rule - a phantom shortage that copies nothing.)
-Replicates(d) == \E k \in 1..Len(d.tasks) : Len(d.tasks[k].nodes) > 0
-Quiet(hs) == \A n \in hs : LET d == Decide27(n, hs, {}, {}) IN ~Replicates(d) /\ d.del = "none"
-NoTasks(hs) == \A n \in hs : ~Replicates(Decide27(n, hs, {}, {}))
-f\* a check "replicates" when it hands the replicator a task with at least one candidate node. (With overlapping
-\* rules the code as found keeps calling the replicator with an EMPTY candidate list: a holder remembered from
-\* an earlier rule does not lower the shortage of a later rule - a phantom shortage that copies nothing.)
-Replicates(d) == \E k \in 1..Len(d.tasks) : Len(d.tasks[k].nodes) > 0
-Quiet(hs) == \A n \in hs : LET d == Decide27(n, hs, {}, {}) IN ~Replicates(d) /\ d.del = "none"
-NoTasks(hs) == \A n \in hs : ~Replicates(Decide27(n, hs, {}, {}))
-.\* a check "replicates" when it hands the replicator a task with at least one candidate node. (With overlapping
-\* rules the code as found keeps calling the replicator with an EMPTY candidate list: a holder remembered from
-\* an earlier rule does not lower the shortage of a later rule - a phantom shortage that copies nothing.)
-Replicates(d) == \E k \in 1..Len(d.tasks) : Len(d.tasks[k].nodes) > 0
-Quiet(hs) == \A n \in hs : LET d == Decide27(n, hs, {}, {}) IN ~Replicates(d) /\ d.del = "none"
-NoTasks(hs) == \A n \in hs : ~Replicates(Decide27(n, hs, {}, {}))
-t\* a check "replicates" when it hands the replicator a task with at least one candidate node. (With overlapping
-\* rules the code as found keeps calling the replicator with an EMPTY candidate list: a holder remembered from
-\* an earlier rule does not lower the shortage of a later rule - a phantom shortage that copies nothing.)
-Replicates(d) == \E k \in 1..Len(d.tasks) : Len(d.tasks[k].nodes) > 0
-Quiet(hs) == \A n \in hs : LET d == Decide27(n, hs, {}, {}) IN ~Replicates(d) /\ d.del = "none"
-NoTasks(hs) == \A n \in hs : ~Replicates(Decide27(n, hs, {}, {}))
-a\* a check "replicates" when it hands the replicator a task with at least one candidate node. (With overlapping
-\* rules the code as found keeps calling the replicator with an EMPTY candidate list: a holder remembered from
-\* an earlier rule does not lower the shortage of a later rule - a phantom shortage that copies nothing.)
-Replicates(d) == \E k \in 1..Len(d.tasks) : Len(d.tasks[k].nodes) > 0
-Quiet(hs) == \A n \in hs : LET d == Decide27(n, hs, {}, {}) IN ~Replicates(d) /\ d.del = "none"
-NoTasks(hs) == \A n \in hs : ~Replicates(Decide27(n, hs, {}, {}))
-s\* a check "replicates" when it hands the replicator a task with at least one candidate node. (With overlapping
-\* rules the code as found keeps calling the replicator with an EMPTY candidate list: a holder remembered from
-\* an earlier rule does not lower the shortage of a later rule - a phantom shortage that copies nothing.)
-Replicates(d) == \E k \in 1..Len(d.tasks) : Len(d.tasks[k].nodes) > 0
-Quiet(hs) == \A n \in hs : LET d == Decide27(n, hs, {}, {}) IN ~Replicates(d) /\ d.del = "none"
-NoTasks(hs) == \A n \in hs : ~Replicates(Decide27(n, hs, {}, {}))
-k\* a check "replicates" when it hands the replicator a task with at least one candidate node. (With overlapping
-\* rules the code as found keeps calling the replicator with an EMPTY candidate list: a holder remembered from
-\* an earlier rule does not lower the shortage of a later rule - a phantom shortage that copies nothing.)
-Replicates(d) == \E k \in 1..Len(d.tasks) : Len(d.tasks[k].nodes) > 0
-Quiet(hs) == \A n \in hs : LET d == Decide27(n, hs, {}, {}) IN ~Replicates(d) /\ d.del = "none"
-NoTasks(hs) == \A n \in hs : ~Replicates(Decide27(n, hs, {}, {}))
-s\* a check "replicates" when it hands the replicator a task with at least one candidate node. (With overlapping
-\* rules the code as found keeps calling the replicator with an EMPTY candidate list: a holder remembered from
-\* an earlier rule does not lower the shortage of a later rule - a phantom shortage that copies nothing.)
-Replicates(d) == \E k \in 1..Len(d.tasks) : Len(d.tasks[k].nodes) > 0
-Quiet(hs) == \A n \in hs : LET d == Decide27(n, hs, {}, {}) IN ~Replicates(d) /\ d.del = "none"
-NoTasks(hs) == \A n \in hs : ~Replicates(Decide27(n, hs, {}, {}))
-[\* a check "replicates" when it hands the replicator a task with at least one candidate node. (With overlapping
-\* rules the code as found keeps calling the replicator with an EMPTY candidate list: a holder remembered from
-\* an earlier rule does not lower the shortage of a later rule - a phantom shortage that copies nothing.)
-Replicates(d) == \E k \in 1..Len(d.tasks) : Len(d.tasks[k].nodes) > 0
-Quiet(hs) == \A n \in hs : LET d == Decide27(n, hs, {}, {}) IN ~Replicates(d) /\ d.del = "none"
-NoTasks(hs) == \A n \in hs : ~Replicates(Decide27(n, hs, {}, {}))
-k\* a check "replicates" when it hands the replicator a task with at least one candidate node. (With overlapping
-\* rules the code as found keeps calling the replicator with an EMPTY candidate list: a holder remembered from
-\* an earlier rule does not lower the shortage of a later rule - a phantom shortage that copies nothing.)
-Replicates(d) == \E k \in 1..Len(d.tasks) : Len(d.tasks[k].nodes) > 0
-Quiet(hs) == \A n \in hs : LET d == Decide27(n, hs, {}, {}) IN ~Replicates(d) /\ d.del = "none"
-NoTasks(hs) == \A n \in hs : ~Replicates(Decide27(n, hs, {}, {}))
-]\* a check "replicates" when it hands the replicator a task with at least one candidate node. (With overlapping
-\* rules the code as found keeps calling the replicator with an EMPTY candidate list: a holder remembered from
-\* an earlier rule does not lower the shortage of a later rule - a phantom shortage that copies nothing.)
-Replicates(d) == \E k \in 1..Len(d.tasks) : Len(d.tasks[k].nodes) > 0
-Quiet(hs) == \A n \in hs : LET d == Decide27(n, hs, {}, {}) IN ~Replicates(d) /\ d.del = "none"
-NoTasks(hs) == \A n \in hs : ~Replicates(Decide27(n, hs, {}, {}))
-.\* a check "replicates" when it hands the replicator a task with at least one candidate node. (With overlapping
-\* rules the code as found keeps calling the replicator with an EMPTY candidate list: a holder remembered from
-\* an earlier rule does not lower the shortage of a later rule - a phantom shortage that copies nothing.)
-Replicates(d) == \E k \in 1..Len(d.tasks) : Len(d.tasks[k].nodes) > 0
-Quiet(hs) == \A n \in hs : LET d == Decide27(n, hs, {}, {}) IN ~Replicates(d) /\ d.del = "none"
-NoTasks(hs) == \A n \in hs : ~Replicates(Decide27(n, hs, {}, {}))
-n\* a check "replicates" when it hands the replicator a task with at least one candidate node. (With overlapping
-\* rules the code as found keeps calling the replicator with an EMPTY candidate list: a holder remembered from
-\* an earlier rule does not lower the shortage of a later rule - a phantom shortage that copies nothing.)
-Replicates(d) == \E k \in 1..Len(d.tasks) : Len(d.tasks[k].nodes) > 0
-Quiet(hs) == \A n \in hs : LET d == Decide27(n, hs, {}, {}) IN ~Replicates(d) /\ d.del = "none"
-NoTasks(hs) == \A n \in hs : ~Replicates(Decide27(n, hs, {}, {}))
-o\* a check "replicates" when it hands the replicator a task with at least one candidate node. (With overlapping
-\* rules the code as found keeps calling the replicator with an EMPTY candidate list: a holder remembered from
-\* an earlier rule does not lower the shortage of a later rule - a phantom shortage that copies nothing.)
-Replicates(d) == \E k \in 1..Len(d.tasks) : Len(d.tasks[k].nodes) > 0
-Quiet(hs) == \A n \in hs : LET d == Decide27(n, hs, {}, {}) IN ~Replicates(d) /\ d.del = "none"
-NoTasks(hs) == \A n \in hs : ~Replicates(Decide27(n, hs, {}, {}))
-d\* a check "replicates" when it hands the replicator a task with at least one candidate node. (With overlapping
-\* rules the code as found keeps calling the replicator with an EMPTY candidate list: a holder remembered from
-\* an earlier rule does not lower the shortage of a later rule - a phantom shortage that copies nothing.)
-Replicates(d) == \E k \in 1..Len(d.tasks) : Len(d.tasks[k].nodes) > 0
-Quiet(hs) == \A n \in hs : LET d == Decide27(n, hs, {}, {}) IN ~Replicates(d) /\ d.del = "none"
-NoTasks(hs) == \A n \in hs : ~Replicates(Decide27(n, hs, {}, {}))
-e\* a check "replicates" when it hands the replicator a task with at least one candidate node. (With overlapping
-\* rules the code as found keeps calling the replicator with an EMPTY candidate list: a holder remembered from
-\* an earlier rule does not lower the shortage of a later rule - a phantom shortage that copies nothing.)
-Replicates(d) == \E k \in 1..Len(d.tasks) : Len(d.tasks[k].nodes) > 0
-Quiet(hs) == \A n \in hs : LET d == Decide27(n, hs, {}, {}) IN ~Replicates(d) /\ d.del = "none"
-NoTasks(hs) == \A n \in hs : ~Replicates(Decide27(n, hs, {}, {}))
-s\* a check "replicates" when it hands the replicator a task with at least one candidate node. (With overlapping
-\* rules the code as found keeps calling the replicator with an EMPTY candidate list: a holder remembered from
-\* an earlier rule does not lower the shortage of a later rule - a phantom shortage that copies nothing.)
-Replicates(d) == \E k \in 1..Len(d.tasks) : Len(d.tasks[k].nodes) > 0
-Quiet(hs) == \A n \in hs : LET d == Decide27(n, hs, {}, {}) IN ~Replicates(d) /\ d.del = "none"
-NoTasks(hs) == \A n \in hs : ~Replicates(Decide27(n, hs, {}, {}))
-)\* a check "replicates" when it hands the replicator a task with at least one candidate node. (With overlapping
-\* rules the code as found keeps calling the replicator with an EMPTY candidate list: a holder remembered from
-\* an earlier rule does not lower the shortage of a later rule - a phantom shortage that copies nothing.)
-Replicates(d) == \E k \in 1..Len(d.tasks) : Len(d.tasks[k].nodes) > 0
-Quiet(hs) == \A n \in hs : LET d == Decide27(n, hs, {}, {}) IN ~Replicates(d) /\ d.del = "none"
-NoTasks(hs) == \A n \in hs : ~Replicates(Decide27(n, hs, {}, {}))
-,\* a check "replicates" when it hands the replicator a task with at least one candidate node. (With overlapping
-\* rules the code as found keeps calling the replicator with an EMPTY candidate list: a holder remembered from
-\* an earlier rule does not lower the shortage of a later rule - a phantom shortage that copies nothing.)
-Replicates(d) == \E k \in 1..Len(d.tasks) : Len(d.tasks[k].nodes) > 0
-Quiet(hs) == \A n \in hs : LET d == Decide27(n, hs, {}, {}) IN ~Replicates(d) /\ d.del = "none"
-NoTasks(hs) == \A n \in hs : ~Replicates(Decide27(n, hs, {}, {}))
- \* a check "replicates" when it hands the replicator a task with at least one candidate node. (With overlapping
-\* rules the code as found keeps calling the replicator with an EMPTY candidate list: a holder remembered from
-\* an earlier rule does not lower the shortage of a later rule - a phantom shortage that copies nothing.)
-Replicates(d) == \E k \in 1..Len(d.tasks) : Len(d.tasks[k].nodes) > 0
-Quiet(hs) == \A n \in hs : LET d == Decide27(n, hs, {}, {}) IN ~Replicates(d) /\ d.del = "none"
-NoTasks(hs) == \A n \in hs : ~Replicates(Decide27(n, hs, {}, {}))
-o\* a check "replicates" when it hands the replicator a task with at least one candidate node. (With overlapping
-\* rules the code as found keeps calling the replicator with an EMPTY candidate list: a holder remembered from
-\* an earlier rule does not lower the shortage of a later rule - a phantom shortage that copies nothing.)
-Replicates(d) == \E k \in 1..Len(d.tasks) : Len(d.tasks[k].nodes) > 0
-Quiet(hs) == \A n \in hs : LET d == Decide27(n, hs, {}, {}) IN ~Replicates(d) /\ d.del = "none"
-NoTasks(hs) == \A n \in hs : ~Replicates(Decide27(n, hs, {}, {}))
-k\* a check "replicates" when it hands the replicator a task with at least one candidate node. (With overlapping
-\* rules the code as found keeps calling the replicator with an EMPTY candidate list: a holder remembered from
-\* an earlier rule does not lower the shortage of a later rule - a phantom shortage that copies nothing.)
-Replicates(d) == \E k \in 1..Len(d.tasks) : Len(d.tasks[k].nodes) > 0
-Quiet(hs) == \A n \in hs : LET d == Decide27(n, hs, {}, {}) IN ~Replicates(d) /\ d.del = "none"
-NoTasks(hs) == \A n \in hs : ~Replicates(Decide27(n, hs, {}, {}))
- \* a check "replicates" when it hands the replicator a task with at least one candidate node. (With overlapping
-\* rules the code as found keeps calling the replicator with an EMPTY candidate list: a holder remembered from
-\* an earlier rule does not lower the shortage of a later rule - a phantom shortage that copies nothing.)
-Replicates(d) == \E k \in 1..Len(d.tasks) : Len(d.tasks[k].nodes) > 0
-Quiet(hs) == \A n \in hs : LET d == Decide27(n, hs, {}, {}) IN ~Replicates(d) /\ d.del = "none"
-NoTasks(hs) == \A n \in hs : ~Replicates(Decide27(n, hs, {}, {}))
-|\* a check "replicates" when it hands the replicator a task with at least one candidate node. (With overlapping
-\* rules the code as found keeps calling the replicator with an EMPTY candidate list: a holder remembered from
-\* an earlier rule does not lower the shortage of a later rule - a phantom shortage that copies nothing.)
-Replicates(d) == \E k \in 1..Len(d.tasks) : Len(d.tasks[k].nodes) > 0
-Quiet(hs) == \A n \in hs : LET d == Decide27(n, hs, {}, {}) IN ~Replicates(d) /\ d.del = "none"
-NoTasks(hs) == \A n \in hs : ~Replicates(Decide27(n, hs, {}, {}))
--\* a check "replicates" when it hands the replicator a task with at least one candidate node. (With overlapping
-\* rules the code as found keeps calling the replicator with an EMPTY candidate list: a holder remembered from
-\* an earlier rule does not lower the shortage of a later rule - a phantom shortage that copies nothing.)
-Replicates(d) == \E k \in 1..Len(d.tasks) : Len(d.tasks[k].nodes) > 0
-Quiet(hs) == \A n \in hs : LET d == Decide27(n, hs, {}, {}) IN ~Replicates(d) /\ d.del = "none"
-NoTasks(hs) == \A n \in hs : ~Replicates(Decide27(n, hs, {}, {}))
->\* a check "replicates" when it hands the replicator a task with at least one candidate node. (With overlapping
-\* rules the code as found keeps calling the replicator with an EMPTY candidate list: a holder remembered from
-\* an earlier rule does not lower the shortage of a later rule - a phantom shortage that copies nothing.)
-Replicates(d) == \E k \in 1..Len(d.tasks) : Len(d.tasks[k].nodes) > 0
-Quiet(hs) == \A n \in hs : LET d == Decide27(n, hs, {}, {}) IN ~Replicates(d) /\ d.del = "none"
-NoTasks(hs) == \A n \in hs : ~Replicates(Decide27(n, hs, {}, {}))
- \* a check "replicates" when it hands the replicator a task with at least one candidate node. (With overlapping
-\* rules the code as found keeps calling the replicator with an EMPTY candidate list: a holder remembered from
-\* an earlier rule does not lower the shortage of a later rule - a phantom shortage that copies nothing.)
-Replicates(d) == \E k \in 1..Len(d.tasks) : Len(d.tasks[k].nodes) > 0
-Quiet(hs) == \A n \in hs : LET d == Decide27(n, hs, {}, {}) IN ~Replicates(d) /\ d.del = "none"
-NoTasks(hs) == \A n \in hs : ~Replicates(Decide27(n, hs, {}, {}))
-M\* a check "replicates" when it hands the replicator a task with at least one candidate node. (With overlapping
-\* rules the code as found keeps calling the replicator with an EMPTY candidate list: a holder remembered from
-\* an earlier rule does not lower the shortage of a later rule - a phantom shortage that copies nothing.)
-Replicates(d) == \E k \in 1..Len(d.tasks) : Len(d.tasks[k].nodes) > 0
-Quiet(hs) == \A n \in hs : LET d == Decide27(n, hs, {}, {}) IN ~Replicates(d) /\ d.del = "none"
-NoTasks(hs) == \A n \in hs : ~Replicates(Decide27(n, hs, {}, {}))
-a\* a check "replicates" when it hands the replicator a task with at least one candidate node. (With overlapping
-\* rules the code as found keeps calling the replicator with an EMPTY candidate list: a holder remembered from
-\* an earlier rule does not lower the shortage of a later rule - a phantom shortage that copies nothing.)
-Replicates(d) == \E k \in 1..Len(d.tasks) : Len(d.tasks[k].nodes) > 0
-Quiet(hs) == \A n \in hs : LET d == Decide27(n, hs, {}, {}) IN ~Replicates(d) /\ d.del = "none"
-NoTasks(hs) == \A n \in hs : ~Replicates(Decide27(n, hs, {}, {}))
-p\* a check "replicates" when it hands the replicator a task with at least one candidate node. (With overlapping
-\* rules the code as found keeps calling the replicator with an EMPTY candidate list: a holder remembered from
-\* an earlier rule does not lower the shortage of a later rule - a phantom shortage that copies nothing.)
-Replicates(d) == \E k \in 1..Len(d.tasks) : Len(d.tasks[k].nodes) > 0
-Quiet(hs) == \A n \in hs : LET d == Decide27(n, hs, {}, {}) IN ~Replicates(d) /\ d.del = "none"
-NoTasks(hs) == \A n \in hs : ~Replicates(Decide27(n, hs, {}, {}))
-S\* a check "replicates" when it hands the replicator a task with at least one candidate node. (With overlapping
-\* rules the code as found keeps calling the replicator with an EMPTY candidate list: a holder remembered from
-\* an earlier rule does not lower the shortage of a later rule - a phantom shortage that copies nothing.)
-Replicates(d) == \E k \in 1..Len(d.tasks) : Len(d.tasks[k].nodes) > 0
-Quiet(hs) == \A n \in hs : LET d == Decide27(n, hs, {}, {}) IN ~Replicates(d) /\ d.del = "none"
-NoTasks(hs) == \A n \in hs : ~Replicates(Decide27(n, hs, {}, {}))
-e\* a check "replicates" when it hands the replicator a task with at least one candidate node. (With overlapping
-\* rules the code as found keeps calling the replicator with an EMPTY candidate list: a holder remembered from
-\* an earlier rule does not lower the shortage of a later rule - a phantom shortage that copies nothing.)
-Replicates(d) == \E k \in 1..Len(d.tasks) : Len(d.tasks[k].nodes) > 0
-Quiet(hs) == \A n \in hs : LET d == Decide27(n, hs, {}, {}) IN ~Replicates(d) /\ d.del = "none"
-NoTasks(hs) == \A n \in hs : ~Replicates(Decide27(n, hs, {}, {}))
-q\* a check "replicates" when it hands the replicator a task with at least one candidate node. (With overlapping
-\* rules the code as found keeps calling the replicator with an EMPTY candidate list: a holder remembered from
-\* an earlier rule does not lower the shortage of a later rule - a phantom shortage that copies nothing.)
-Replicates(d) == \E k \in 1..Len(d.tasks) : Len(d.tasks[k].nodes) > 0
-Quiet(hs) == \A n \in hs : LET d == Decide27(n, hs, {}, {}) IN ~Replicates(d) /\ d.del = "none"
-NoTasks(hs) == \A n \in hs : ~Replicates(Decide27(n, hs, {}, {}))
-(\* a check "replicates" when it hands the replicator a task with at least one candidate node. (With overlapping
-\* rules the code as found keeps calling the replicator with an EMPTY candidate list: a holder remembered from
-\* an earlier rule does not lower the shortage of a later rule - a phantom shortage that copies nothing.)
-Replicates(d) == \E k \in 1..Len(d.tasks) : Len(d.tasks[k].nodes) > 0
-Quiet(hs) == \A n \in hs : LET d == Decide27(n, hs, {}, {}) IN ~Replicates(d) /\ d.del = "none"
-NoTasks(hs) == \A n \in hs : ~Replicates(Decide27(n, hs, {}, {}))
-n\* a check "replicates" when it hands the replicator a task with at least one candidate node. (With overlapping
-\* rules the code as found keeps calling the replicator with an EMPTY candidate list: a holder remembered from
-\* an earlier rule does not lower the shortage of a later rule - a phantom shortage that copies nothing.)
-Replicates(d) == \E k \in 1..Len(d.tasks) : Len(d.tasks[k].nodes) > 0
-Quiet(hs) == \A n \in hs : LET d == Decide27(n, hs, {}, {}) IN ~Replicates(d) /\ d.del = "none"
-NoTasks(hs) == \A n \in hs : ~Replicates(Decide27(n, hs, {}, {}))
-,\* a check "replicates" when it hands the replicator a task with at least one candidate node. (With overlapping
-\* rules the code as found keeps calling the replicator with an EMPTY candidate list: a holder remembered from
-\* an earlier rule does not lower the shortage of a later rule - a phantom shortage that copies nothing.)
-Replicates(d) == \E k \in 1..Len(d.tasks) : Len(d.tasks[k].nodes) > 0
-Quiet(hs) == \A n \in hs : LET d == Decide27(n, hs, {}, {}) IN ~Replicates(d) /\ d.del = "none"
-NoTasks(hs) == \A n \in hs : ~Replicates(Decide27(n, hs, {}, {}))
- \* a check "replicates" when it hands the replicator a task with at least one candidate node. (With overlapping
-\* rules the code as found keeps calling the replicator with an EMPTY candidate list: a holder remembered from
-\* an earlier rule does not lower the shortage of a later rule - a phantom shortage that copies nothing.)
-Replicates(d) == \E k \in 1..Len(d.tasks) : Len(d.tasks[k].nodes) > 0
-Quiet(hs) == \A n \in hs : LET d == Decide27(n, hs, {}, {}) IN ~Replicates(d) /\ d.del = "none"
-NoTasks(hs) == \A n \in hs : ~Replicates(Decide27(n, hs, {}, {}))
-f\* a check "replicates" when it hands the replicator a task with at least one candidate node. (With overlapping
-\* rules the code as found keeps calling the replicator with an EMPTY candidate list: a holder remembered from
-\* an earlier rule does not lower the shortage of a later rule - a phantom shortage that copies nothing.)
-Replicates(d) == \E k \in 1..Len(d.tasks) : Len(d.tasks[k].nodes) > 0
-Quiet(hs) == \A n \in hs : LET d == Decide27(n, hs, {}, {}) IN ~Replicates(d) /\ d.del = "none"
-NoTasks(hs) == \A n \in hs : ~Replicates(Decide27(n, hs, {}, {}))
-.\* a check "replicates" when it hands the replicator a task with at least one candidate node. (With overlapping
-\* rules the code as found keeps calling the replicator with an EMPTY candidate list: a holder remembered from
-\* an earlier rule does not lower the shortage of a later rule - a phantom shortage that copies nothing.)
-Replicates(d) == \E k \in 1..Len(d.tasks) : Len(d.tasks[k].nodes) > 0
-Quiet(hs) == \A n \in hs : LET d == Decide27(n, hs, {}, {}) IN ~Replicates(d) /\ d.del = "none"
-NoTasks(hs) == \A n \in hs : ~Replicates(Decide27(n, hs, {}, {}))
-t\* a check "replicates" when it hands the replicator a task with at least one candidate node. (With overlapping
-\* rules the code as found keeps calling the replicator with an EMPTY candidate list: a holder remembered from
-\* an earlier rule does not lower the shortage of a later rule - a phantom shortage that copies nothing.)
-Replicates(d) == \E k \in 1..Len(d.tasks) : Len(d.tasks[k].nodes) > 0
-Quiet(hs) == \A n \in hs : LET d == Decide27(n, hs, {}, {}) IN ~Replicates(d) /\ d.del = "none"
-NoTasks(hs) == \A n \in hs : ~Replicates(Decide27(n, hs, {}, {}))
-a\* a check "replicates" when it hands the replicator a task with at least one candidate node. (With overlapping
-\* rules the code as found keeps calling the replicator with an EMPTY candidate list: a holder remembered from
-\* an earlier rule does not lower the shortage of a later rule - a phantom shortage that copies nothing.)
-Replicates(d) == \E k \in 1..Len(d.tasks) : Len(d.tasks[k].nodes) > 0
-Quiet(hs) == \A n \in hs : LET d == Decide27(n, hs, {}, {}) IN ~Replicates(d) /\ d.del = "none"
-NoTasks(hs) == \A n \in hs : ~Replicates(Decide27(n, hs, {}, {}))
-s\* a check "replicates" when it hands the replicator a task with at least one candidate node. (With overlapping
-\* rules the code as found keeps calling the replicator with an EMPTY candidate list: a holder remembered from
-\* an earlier rule does not lower the shortage of a later rule - a phantom shortage that copies nothing.)
-Replicates(d) == \E k \in 1..Len(d.tasks) : Len(d.tasks[k].nodes) > 0
-Quiet(hs) == \A n \in hs : LET d == Decide27(n, hs, {}, {}) IN ~Replicates(d) /\ d.del = "none"
-NoTasks(hs) == \A n \in hs : ~Replicates(Decide27(n, hs, {}, {}))
-k\* a check "replicates" when it hands the replicator a task with at least one candidate node. (With overlapping
-\* rules the code as found keeps calling the replicator with an EMPTY candidate list: a holder remembered from
-\* an earlier rule does not lower the shortage of a later rule - a phantom shortage that copies nothing.)
-Replicates(d) == \E k \in 1..Len(d.tasks) : Len(d.tasks[k].nodes) > 0
-Quiet(hs) == \A n \in hs : LET d == Decide27(n, hs, {}, {}) IN ~Replicates(d) /\ d.del = "none"
-NoTasks(hs) == \A n \in hs : ~Replicates(Decide27(n, hs, {}, {}))
-s\* a check "replicates" when it hands the replicator a task with at least one candidate node. (With overlapping
-\* rules the code as found keeps calling the replicator with an EMPTY candidate list: a holder remembered from
-\* an earlier rule does not lower the shortage of a later rule - a phantom shortage that copies nothing.)
-Replicates(d) == \E k \in 1..Len(d.tasks) : Len(d.tasks[k].nodes) > 0
-Quiet(hs) == \A n \in hs : LET d == Decide27(n, hs, {}, {}) IN ~Replicates(d) /\ d.del = "none"
-NoTasks(hs) == \A n \in hs : ~Replicates(Decide27(n, hs, {}, {}))
-[\* a check "replicates" when it hands the replicator a task with at least one candidate node. (With overlapping
-\* rules the code as found keeps calling the replicator with an EMPTY candidate list: a holder remembered from
-\* an earlier rule does not lower the shortage of a later rule - a phantom shortage that copies nothing.)
-Replicates(d) == \E k \in 1..Len(d.tasks) : Len(d.tasks[k].nodes) > 0
-Quiet(hs) == \A n \in hs : LET d == Decide27(n, hs, {}, {}) IN ~Replicates(d) /\ d.del = "none"
-NoTasks(hs) == \A n \in hs : ~Replicates(Decide27(n, hs, {}, {}))
-k\* a check "replicates" when it hands the replicator a task with at least one candidate node. (With overlapping
-\* rules the code as found keeps calling the replicator with an EMPTY candidate list: a holder remembered from
-\* an earlier rule does not lower the shortage of a later rule - a phantom shortage that copies nothing.)
-Replicates(d) == \E k \in 1..Len(d.tasks) : Len(d.tasks[k].nodes) > 0
-Quiet(hs) == \A n \in hs : LET d == Decide27(n, hs, {}, {}) IN ~Replicates(d) /\ d.del = "none"
-NoTasks(hs) == \A n \in hs : ~Replicates(Decide27(n, hs, {}, {}))
-]\* a check "replicates" when it hands the replicator a task with at least one candidate node. (With overlapping
-\* rules the code as found keeps calling the replicator with an EMPTY candidate list: a holder remembered from
-\* an earlier rule does not lower the shortage of a later rule - a phantom shortage that copies nothing.)
-Replicates(d) == \E k \in 1..Len(d.tasks) : Len(d.tasks[k].nodes) > 0
-Quiet(hs) == \A n \in hs : LET d == Decide27(n, hs, {}, {}) IN ~Replicates(d) /\ d.del = "none"
-NoTasks(hs) == \A n \in hs : ~Replicates(Decide27(n, hs, {}, {}))
-.\* a check "replicates" when it hands the replicator a task with at least one candidate node. (With overlapping
-\* rules the code as found keeps calling the replicator with an EMPTY candidate list: a holder remembered from
-\* an earlier rule does not lower the shortage of a later rule - a phantom shortage that copies nothing.)
-Replicates(d) == \E k \in 1..Len(d.tasks) : Len(d.tasks[k].nodes) > 0
-Quiet(hs) == \A n \in hs : LET d == Decide27(n, hs, {}, {}) IN ~Replicates(d) /\ d.del = "none"
-NoTasks(hs) == \A n \in hs : ~Replicates(Decide27(n, hs, {}, {}))
-o\* a check "replicates" when it hands the replicator a task with at least one candidate node. (With overlapping
-\* rules the code as found keeps calling the replicator with an EMPTY candidate list: a holder remembered from
-\* an earlier rule does not lower the shortage of a later rule - a phantom shortage that copies nothing.)
-Replicates(d) == \E k \in 1..Len(d.tasks) : Len(d.tasks[k].nodes) > 0
-Quiet(hs) == \A n \in hs : LET d == Decide27(n, hs, {}, {}) IN ~Replicates(d) /\ d.del = "none"
-NoTasks(hs) == \A n \in hs : ~Replicates(Decide27(n, hs, {}, {}))
-k\* a check "replicates" when it hands the replicator a task with at least one candidate node. (With overlapping
-\* rules the code as found keeps calling the replicator with an EMPTY candidate list: a holder remembered from
-\* an earlier rule does not lower the shortage of a later rule - a phantom shortage that copies nothing.)
-Replicates(d) == \E k \in 1..Len(d.tasks) : Len(d.tasks[k].nodes) > 0
-Quiet(hs) == \A n \in hs : LET d == Decide27(n, hs, {}, {}) IN ~Replicates(d) /\ d.del = "none"
-NoTasks(hs) == \A n \in hs : ~Replicates(Decide27(n, hs, {}, {}))
-)\* a check "replicates" when it hands the replicator a task with at least one candidate node. (With overlapping
-\* rules the code as found keeps calling the replicator with an EMPTY candidate list: a holder remembered from
-\* an earlier rule does not lower the shortage of a later rule - a phantom shortage that copies nothing.)
-Replicates(d) == \E k \in 1..Len(d.tasks) : Len(d.tasks[k].nodes) > 0
-Quiet(hs) == \A n \in hs : LET d == Decide27(n, hs, {}, {}) IN ~Replicates(d) /\ d.del = "none"
-NoTasks(hs) == \A n \in hs : ~Replicates(Decide27(n, hs, {}, {}))
-]\* a check "replicates" when it hands the replicator a task with at least one candidate node. (With overlapping
-\* rules the code as found keeps calling the replicator with an EMPTY candidate list: a holder remembered from
-\* an earlier rule does not lower the shortage of a later rule - a phantom shortage that copies nothing.)
-Replicates(d) == \E k \in 1..Len(d.tasks) : Len(d.tasks[k].nodes) > 0
-Quiet(hs) == \A n \in hs : LET d == Decide27(n, hs, {}, {}) IN ~Replicates(d) /\ d.del = "none"
-NoTasks(hs) == \A n \in hs : ~Replicates(Decide27(n, hs, {}, {}))
-]\* a check "replicates" when it hands the replicator a task with at least one candidate node. (With overlapping
-\* rules the code as found keeps calling the replicator with an EMPTY candidate list: a holder remembered from
-\* an earlier rule does not lower the shortage of a later rule - a phantom shortage that copies nothing.)
-Replicates(d) == \E k \in 1..Len(d.tasks) : Len(d.tasks[k].nodes) > 0
-Quiet(hs) == \A n \in hs : LET d == Decide27(n, hs, {}, {}) IN ~Replicates(d) /\ d.del = "none"
-NoTasks(hs) == \A n \in hs : ~Replicates(Decide27(n, hs, {}, {}))
-,\* a check "replicates" when it hands the replicator a task with at least one candidate node. (With overlapping
-\* rules the code as found keeps calling the replicator with an EMPTY candidate list: a holder remembered from
-\* an earlier rule does not lower the shortage of a later rule - a phantom shortage that copies nothing.)
-Replicates(d) == \E k \in 1..Len(d.tasks) : Len(d.tasks[k].nodes) > 0
-Quiet(hs) == \A n \in hs : LET d == Decide27(n, hs, {}, {}) IN ~Replicates(d) /\ d.del = "none"
-NoTasks(hs) == \A n \in hs : ~Replicates(Decide27(n, hs, {}, {}))
-
-\* a check "replicates" when it hands the replicator a task with at least one candidate node. (With overlapping
-\* rules the code as found keeps calling the replicator with an EMPTY candidate list: a holder remembered from
-\* an earlier rule does not lower the shortage of a later rule - a phantom shortage that copies nothing.)
-Replicates(d) == \E k \in 1..Len(d.tasks) : Len(d.tasks[k].nodes) > 0
-Quiet(hs) == \A n \in hs : LET d == Decide27(n, hs, {}, {}) IN ~Replicates(d) /\ d.del = "none"
-NoTasks(hs) == \A n \in hs : ~Replicates(Decide27(n, hs, {}, {}))
- \* a check "replicates" when it hands the replicator a task with at least one candidate node. (With overlapping
-\* rules the code as found keeps calling the replicator with an EMPTY candidate list: a holder remembered from
-\* an earlier rule does not lower the shortage of a later rule - a phantom shortage that copies nothing.)
-Replicates(d) == \E k \in 1..Len(d.tasks) : Len(d.tasks[k].nodes) > 0
-Quiet(hs) == \A n \in hs : LET d == Decide27(n, hs, {}, {}) IN ~Replicates(d) /\ d.del = "none"
-NoTasks(hs) == \A n \in hs : ~Replicates(Decide27(n, hs, {}, {}))
- \* a check "replicates" when it hands the replicator a task with at least one candidate node. (With overlapping
-\* rules the code as found keeps calling the replicator with an EMPTY candidate list: a holder remembered from
-\* an earlier rule does not lower the shortage of a later rule - a phantom shortage that copies nothing.)
-Replicates(d) == \E k \in 1..Len(d.tasks) : Len(d.tasks[k].nodes) > 0
-Quiet(hs) == \A n \in hs : LET d == Decide27(n, hs, {}, {}) IN ~Replicates(d) /\ d.del = "none"
-NoTasks(hs) == \A n \in hs : ~Replicates(Decide27(n, hs, {}, {}))
- \* a check "replicates" when it hands the replicator a task with at least one candidate node. (With overlapping
-\* rules the code as found keeps calling the replicator with an EMPTY candidate list: a holder remembered from
-\* an earlier rule does not lower the shortage of a later rule - a phantom shortage that copies nothing.)
-Replicates(d) == \E k \in 1..Len(d.tasks) : Len(d.tasks[k].nodes) > 0
-Quiet(hs) == \A n \in hs : LET d == Decide27(n, hs, {}, {}) IN ~Replicates(d) /\ d.del = "none"
-NoTasks(hs) == \A n \in hs : ~Replicates(Decide27(n, hs, {}, {}))
-s\* a check "replicates" when it hands the replicator a task with at least one candidate node. (With overlapping
-\* rules the code as found keeps calling the replicator with an EMPTY candidate list: a holder remembered from
-\* an earlier rule does not lower the shortage of a later rule - a phantom shortage that copies nothing.)
-Replicates(d) == \E k \in 1..Len(d.tasks) : Len(d.tasks[k].nodes) > 0
-Quiet(hs) == \A n \in hs : LET d == Decide27(n, hs, {}, {}) IN ~Replicates(d) /\ d.del = "none"
-NoTasks(hs) == \A n \in hs : ~Replicates(Decide27(n, hs, {}, {}))
-t\* a check "replicates" when it hands the replicator a task with at least one candidate node. (With overlapping
-\* rules the code as found keeps calling the replicator with an EMPTY candidate list: a holder remembered from
-\* an earlier rule does not lower the shortage of a later rule - a phantom shortage that copies nothing.)
-Replicates(d) == \E k \in 1..Len(d.tasks) : Len(d.tasks[k].nodes) > 0
-Quiet(hs) == \A n \in hs : LET d == Decide27(n, hs, {}, {}) IN ~Replicates(d) /\ d.del = "none"
-NoTasks(hs) == \A n \in hs : ~Replicates(Decide27(n, hs, {}, {}))
-o\* a check "replicates" when it hands the replicator a task with at least one candidate node. (With overlapping
-\* rules the code as found keeps calling the replicator with an EMPTY candidate list: a holder remembered from
-\* an earlier rule does not lower the shortage of a later rule - a phantom shortage that copies nothing.)
-Replicates(d) == \E k \in 1..Len(d.tasks) : Len(d.tasks[k].nodes) > 0
-Quiet(hs) == \A n \in hs : LET d == Decide27(n, hs, {}, {}) IN ~Replicates(d) /\ d.del = "none"
-NoTasks(hs) == \A n \in hs : ~Replicates(Decide27(n, hs, {}, {}))
-r\* a check "replicates" when it hands the replicator a task with at least one candidate node. (With overlapping
-\* rules the code as found keeps calling the replicator with an EMPTY candidate list: a holder remembered from
-\* an earlier rule does not lower the shortage of a later rule - a phantom shortage that copies nothing.)
-Replicates(d) == \E k \in 1..Len(d.tasks) : Len(d.tasks[k].nodes) > 0
-Quiet(hs) == \A n \in hs : LET d == Decide27(n, hs, {}, {}) IN ~Replicates(d) /\ d.del = "none"
-NoTasks(hs) == \A n \in hs : ~Replicates(Decide27(n, hs, {}, {}))
-e\* a check "replicates" when it hands the replicator a task with at least one candidate node. (With overlapping
-\* rules the code as found keeps calling the replicator with an EMPTY candidate list: a holder remembered from
-\* an earlier rule does not lower the shortage of a later rule - a phantom shortage that copies nothing.)
-Replicates(d) == \E k \in 1..Len(d.tasks) : Len(d.tasks[k].nodes) > 0
-Quiet(hs) == \A n \in hs : LET d == Decide27(n, hs, {}, {}) IN ~Replicates(d) /\ d.del = "none"
-NoTasks(hs) == \A n \in hs : ~Replicates(Decide27(n, hs, {}, {}))
-d\* a check "replicates" when it hands the replicator a task with at least one candidate node. (With overlapping
-\* rules the code as found keeps calling the replicator with an EMPTY candidate list: a holder remembered from
-\* an earlier rule does not lower the shortage of a later rule - a phantom shortage that copies nothing.)
-Replicates(d) == \E k \in 1..Len(d.tasks) : Len(d.tasks[k].nodes) > 0
-Quiet(hs) == \A n \in hs : LET d == Decide27(n, hs, {}, {}) IN ~Replicates(d) /\ d.del = "none"
-NoTasks(hs) == \A n \in hs : ~Replicates(Decide27(n, hs, {}, {}))
- \* a check "replicates" when it hands the replicator a task with at least one candidate node. (With overlapping
-\* rules the code as found keeps calling the replicator with an EMPTY candidate list: a holder remembered from
-\* an earlier rule does not lower the shortage of a later rule - a phantom shortage that copies nothing.)
-Replicates(d) == \E k \in 1..Len(d.tasks) : Len(d.tasks[k].nodes) > 0
-Quiet(hs) == \A n \in hs : LET d == Decide27(n, hs, {}, {}) IN ~Replicates(d) /\ d.del = "none"
-NoTasks(hs) == \A n \in hs : ~Replicates(Decide27(n, hs, {}, {}))
-|\* a check "replicates" when it hands the replicator a task with at least one candidate node. (With overlapping
-\* rules the code as found keeps calling the replicator with an EMPTY candidate list: a holder remembered from
-\* an earlier rule does not lower the shortage of a later rule - a phantom shortage that copies nothing.)
-Replicates(d) == \E k \in 1..Len(d.tasks) : Len(d.tasks[k].nodes) > 0
-Quiet(hs) == \A n \in hs : LET d == Decide27(n, hs, {}, {}) IN ~Replicates(d) /\ d.del = "none"
-NoTasks(hs) == \A n \in hs : ~Replicates(Decide27(n, hs, {}, {}))
--\* a check "replicates" when it hands the replicator a task with at least one candidate node. (With overlapping
-\* rules the code as found keeps calling the replicator with an EMPTY candidate list: a holder remembered from
-\* an earlier rule does not lower the shortage of a later rule - a phantom shortage that copies nothing.)
-Replicates(d) == \E k \in 1..Len(d.tasks) : Len(d.tasks[k].nodes) > 0
-Quiet(hs) == \A n \in hs : LET d == Decide27(n, hs, {}, {}) IN ~Replicates(d) /\ d.del = "none"
-NoTasks(hs) == \A n \in hs : ~Replicates(Decide27(n, hs, {}, {}))
->\* a check "replicates" when it hands the replicator a task with at least one candidate node. (With overlapping
-\* rules the code as found keeps calling the replicator with an EMPTY candidate list: a holder remembered from
-\* an earlier rule does not lower the shortage of a later rule - a phantom shortage that copies nothing.)
-Replicates(d) == \E k \in 1..Len(d.tasks) : Len(d.tasks[k].nodes) > 0
-Quiet(hs) == \A n \in hs : LET d == Decide27(n, hs, {}, {}) IN ~Replicates(d) /\ d.del = "none"
-NoTasks(hs) == \A n \in hs : ~Replicates(Decide27(n, hs, {}, {}))
- \* a check "replicates" when it hands the replicator a task with at least one candidate node. (With overlapping
-\* rules the code as found keeps calling the replicator with an EMPTY candidate list: a holder remembered from
-\* an earlier rule does not lower the shortage of a later rule - a phantom shortage that copies nothing.)
-Replicates(d) == \E k \in 1..Len(d.tasks) : Len(d.tasks[k].nodes) > 0
-Quiet(hs) == \A n \in hs : LET d == Decide27(n, hs, {}, {}) IN ~Replicates(d) /\ d.del = "none"
-NoTasks(hs) == \A n \in hs : ~Replicates(Decide27(n, hs, {}, {}))
-{\* a check "replicates" when it hands the replicator a task with at least one candidate node. (With overlapping
-\* rules the code as found keeps calling the replicator with an EMPTY candidate list: a holder remembered from
-\* an earlier rule does not lower the shortage of a later rule - a phantom shortage that copies nothing.)
-Replicates(d) == \E k \in 1..Len(d.tasks) : Len(d.tasks[k].nodes) > 0
-Quiet(hs) == \A n \in hs : LET d == Decide27(n, hs, {}, {}) IN ~Replicates(d) /\ d.del = "none"
-NoTasks(hs) == \A n \in hs : ~Replicates(Decide27(n, hs, {}, {}))
-S\* a check "replicates" when it hands the replicator a task with at least one candidate node. (With overlapping
-\* rules the code as found keeps calling the replicator with an EMPTY candidate list: a holder remembered from
-\* an earlier rule does not lower the shortage of a later rule - a phantom shortage that copies nothing.)
-Replicates(d) == \E k \in 1..Len(d.tasks) : Len(d.tasks[k].nodes) > 0
-Quiet(hs) == \A n \in hs : LET d == Decide27(n, hs, {}, {}) IN ~Replicates(d) /\ d.del = "none"
-NoTasks(hs) == \A n \in hs : ~Replicates(Decide27(n, hs, {}, {}))
-w\* a check "replicates" when it hands the replicator a task with at least one candidate node. (With overlapping
-\* rules the code as found keeps calling the replicator with an EMPTY candidate list: a holder remembered from
-\* an earlier rule does not lower the shortage of a later rule - a phantom shortage that copies nothing.)
-Replicates(d) == \E k \in 1..Len(d.tasks) : Len(d.tasks[k].nodes) > 0
-Quiet(hs) == \A n \in hs : LET d == Decide27(n, hs, {}, {}) IN ~Replicates(d) /\ d.del = "none"
-NoTasks(hs) == \A n \in hs : ~Replicates(Decide27(n, hs, {}, {}))
-a\* a check "replicates" when it hands the replicator a task with at least one candidate node. (With overlapping
-\* rules the code as found keeps calling the replicator with an EMPTY candidate list: a holder remembered from
-\* an earlier rule does not lower the shortage of a later rule - a phantom shortage that copies nothing.)
-Replicates(d) == \E k \in 1..Len(d.tasks) : Len(d.tasks[k].nodes) > 0
-Quiet(hs) == \A n \in hs : LET d == Decide27(n, hs, {}, {}) IN ~Replicates(d) /\ d.del = "none"
-NoTasks(hs) == \A n \in hs : ~Replicates(Decide27(n, hs, {}, {}))
-p\* a check "replicates" when it hands the replicator a task with at least one candidate node. (With overlapping
-\* rules the code as found keeps calling the replicator with an EMPTY candidate list: a holder remembered from
-\* an earlier rule does not lower the shortage of a later rule - a phantom shortage that copies nothing.)
-Replicates(d) == \E k \in 1..Len(d.tasks) : Len(d.tasks[k].nodes) > 0
-Quiet(hs) == \A n \in hs : LET d == Decide27(n, hs, {}, {}) IN ~Replicates(d) /\ d.del = "none"
-NoTasks(hs) == \A n \in hs : ~Replicates(Decide27(n, hs, {}, {}))
-(\* a check "replicates" when it hands the replicator a task with at least one candidate node. (With overlapping
-\* rules the code as found keeps calling the replicator with an EMPTY candidate list: a holder remembered from
-\* an earlier rule does not lower the shortage of a later rule - a phantom shortage that copies nothing.)
-Replicates(d) == \E k \in 1..Len(d.tasks) : Len(d.tasks[k].nodes) > 0
-Quiet(hs) == \A n \in hs : LET d == Decide27(n, hs, {}, {}) IN ~Replicates(d) /\ d.del = "none"
-NoTasks(hs) == \A n \in hs : ~Replicates(Decide27(n, hs, {}, {}))
-n\* a check "replicates" when it hands the replicator a task with at least one candidate node. (With overlapping
-\* rules the code as found keeps calling the replicator with an EMPTY candidate list: a holder remembered from
-\* an earlier rule does not lower the shortage of a later rule - a phantom shortage that copies nothing.)
-Replicates(d) == \E k \in 1..Len(d.tasks) : Len(d.tasks[k].nodes) > 0
-Quiet(hs) == \A n \in hs : LET d == Decide27(n, hs, {}, {}) IN ~Replicates(d) /\ d.del = "none"
-NoTasks(hs) == \A n \in hs : ~Replicates(Decide27(n, hs, {}, {}))
-,\* a check "replicates" when it hands the replicator a task with at least one candidate node. (With overlapping
-\* rules the code as found keeps calling the replicator with an EMPTY candidate list: a holder remembered from
-\* an earlier rule does not lower the shortage of a later rule - a phantom shortage that copies nothing.)
-Replicates(d) == \E k \in 1..Len(d.tasks) : Len(d.tasks[k].nodes) > 0
-Quiet(hs) == \A n \in hs : LET d == Decide27(n, hs, {}, {}) IN ~Replicates(d) /\ d.del = "none"
-NoTasks(hs) == \A n \in hs : ~Replicates(Decide27(n, hs, {}, {}))
- \* a check "replicates" when it hands the replicator a task with at least one candidate node. (With overlapping
-\* rules the code as found keeps calling the replicator with an EMPTY candidate list: a holder remembered from
-\* an earlier rule does not lower the shortage of a later rule - a phantom shortage that copies nothing.)
-Replicates(d) == \E k \in 1..Len(d.tasks) : Len(d.tasks[k].nodes) > 0
-Quiet(hs) == \A n \in hs : LET d == Decide27(n, hs, {}, {}) IN ~Replicates(d) /\ d.del = "none"
-NoTasks(hs) == \A n \in hs : ~Replicates(Decide27(n, hs, {}, {}))
-x\* a check "replicates" when it hands the replicator a task with at least one candidate node. (With overlapping
-\* rules the code as found keeps calling the replicator with an EMPTY candidate list: a holder remembered from
-\* an earlier rule does not lower the shortage of a later rule - a phantom shortage that copies nothing.)
-Replicates(d) == \E k \in 1..Len(d.tasks) : Len(d.tasks[k].nodes) > 0
-Quiet(hs) == \A n \in hs : LET d == Decide27(n, hs, {}, {}) IN ~Replicates(d) /\ d.del = "none"
-NoTasks(hs) == \A n \in hs : ~Replicates(Decide27(n, hs, {}, {}))
-)\* a check "replicates" when it hands the replicator a task with at least one candidate node. (With overlapping
-\* rules the code as found keeps calling the replicator with an EMPTY candidate list: a holder remembered from
-\* an earlier rule does not lower the shortage of a later rule - a phantom shortage that copies nothing.)
-Replicates(d) == \E k \in 1..Len(d.tasks) : Len(d.tasks[k].nodes) > 0
-Quiet(hs) == \A n \in hs : LET d == Decide27(n, hs, {}, {}) IN ~Replicates(d) /\ d.del = "none"
-NoTasks(hs) == \A n \in hs : ~Replicates(Decide27(n, hs, {}, {}))
- \* a check "replicates" when it hands the replicator a task with at least one candidate node. (With overlapping
-\* rules the code as found keeps calling the replicator with an EMPTY candidate list: a holder remembered from
-\* an earlier rule does not lower the shortage of a later rule - a phantom shortage that copies nothing.)
-Replicates(d) == \E k \in 1..Len(d.tasks) : Len(d.tasks[k].nodes) > 0
-Quiet(hs) == \A n \in hs : LET d == Decide27(n, hs, {}, {}) IN ~Replicates(d) /\ d.del = "none"
-NoTasks(hs) == \A n \in hs : ~Replicates(Decide27(n, hs, {}, {}))
-:\* a check "replicates" when it hands the replicator a task with at least one candidate node. (With overlapping
-\* rules the code as found keeps calling the replicator with an EMPTY candidate list: a holder remembered from
-\* an earlier rule does not lower the shortage of a later rule - a phantom shortage that copies nothing.)
-Replicates(d) == \E k \in 1..Len(d.tasks) : Len(d.tasks[k].nodes) > 0
-Quiet(hs) == \A n \in hs : LET d == Decide27(n, hs, {}, {}) IN ~Replicates(d) /\ d.del = "none"
-NoTasks(hs) == \A n \in hs : ~Replicates(Decide27(n, hs, {}, {}))
- \* a check "replicates" when it hands the replicator a task with at least one candidate node. (With overlapping
-\* rules the code as found keeps calling the replicator with an EMPTY candidate list: a holder remembered from
-\* an earlier rule does not lower the shortage of a later rule - a phantom shortage that copies nothing.)
-Replicates(d) == \E k \in 1..Len(d.tasks) : Len(d.tasks[k].nodes) > 0
-Quiet(hs) == \A n \in hs : LET d == Decide27(n, hs, {}, {}) IN ~Replicates(d) /\ d.del = "none"
-NoTasks(hs) == \A n \in hs : ~Replicates(Decide27(n, hs, {}, {}))
-x\* a check "replicates" when it hands the replicator a task with at least one candidate node. (With overlapping
-\* rules the code as found keeps calling the replicator with an EMPTY candidate list: a holder remembered from
-\* an earlier rule does not lower the shortage of a later rule - a phantom shortage that copies nothing.)
-Replicates(d) == \E k \in 1..Len(d.tasks) : Len(d.tasks[k].nodes) > 0
-Quiet(hs) == \A n \in hs : LET d == Decide27(n, hs, {}, {}) IN ~Replicates(d) /\ d.del = "none"
-NoTasks(hs) == \A n \in hs : ~Replicates(Decide27(n, hs, {}, {}))
- \* a check "replicates" when it hands the replicator a task with at least one candidate node. (With overlapping
-\* rules the code as found keeps calling the replicator with an EMPTY candidate list: a holder remembered from
-\* an earlier rule does not lower the shortage of a later rule - a phantom shortage that copies nothing.)
-Replicates(d) == \E k \in 1..Len(d.tasks) : Len(d.tasks[k].nodes) > 0
-Quiet(hs) == \A n \in hs : LET d == Decide27(n, hs, {}, {}) IN ~Replicates(d) /\ d.del = "none"
-NoTasks(hs) == \A n \in hs : ~Replicates(Decide27(n, hs, {}, {}))
-\\* a check "replicates" when it hands the replicator a task with at least one candidate node. (With overlapping
-\* rules the code as found keeps calling the replicator with an EMPTY candidate list: a holder remembered from
-\* an earlier rule does not lower the shortage of a later rule - a phantom shortage that copies nothing.)
-Replicates(d) == \E k \in 1..Len(d.tasks) : Len(d.tasks[k].nodes) > 0
-Quiet(hs) == \A n \in hs : LET d == Decide27(n, hs, {}, {}) IN ~Replicates(d) /\ d.del = "none"
-NoTasks(hs) == \A n \in hs : ~Replicates(Decide27(n, hs, {}, {}))
-i\* a check "replicates" when it hands the replicator a task with at least one candidate node. (With overlapping
-\* rules the code as found keeps calling the replicator with an EMPTY candidate list: a holder remembered from
-\* an earlier rule does not lower the shortage of a later rule - a phantom shortage that copies nothing.)
-Replicates(d) == \E k \in 1..Len(d.tasks) : Len(d.tasks[k].nodes) > 0
-Quiet(hs) == \A n \in hs : LET d == Decide27(n, hs, {}, {}) IN ~Replicates(d) /\ d.del = "none"
-NoTasks(hs) == \A n \in hs : ~Replicates(Decide27(n, hs, {}, {}))
-n\* a check "replicates" when it hands the replicator a task with at least one candidate node. (With overlapping
-\* rules the code as found keeps calling the replicator with an EMPTY candidate list: a holder remembered from
-\* an earlier rule does not lower the shortage of a later rule - a phantom shortage that copies nothing.)
-Replicates(d) == \E k \in 1..Len(d.tasks) : Len(d.tasks[k].nodes) > 0
-Quiet(hs) == \A n \in hs : LET d == Decide27(n, hs, {}, {}) IN ~Replicates(d) /\ d.del = "none"
-NoTasks(hs) == \A n \in hs : ~Replicates(Decide27(n, hs, {}, {}))
- \* a check "replicates" when it hands the replicator a task with at least one candidate node. (With overlapping
-\* rules the code as found keeps calling the replicator with an EMPTY candidate list: a holder remembered from
-\* an earlier rule does not lower the shortage of a later rule - a phantom shortage that copies nothing.)
-Replicates(d) == \E k \in 1..Len(d.tasks) : Len(d.tasks[k].nodes) > 0
-Quiet(hs) == \A n \in hs : LET d == Decide27(n, hs, {}, {}) IN ~Replicates(d) /\ d.del = "none"
-NoTasks(hs) == \A n \in hs : ~Replicates(Decide27(n, hs, {}, {}))
-f\* a check "replicates" when it hands the replicator a task with at least one candidate node. (With overlapping
-\* rules the code as found keeps calling the replicator with an EMPTY candidate list: a holder remembered from
-\* an earlier rule does not lower the shortage of a later rule - a phantom shortage that copies nothing.)
-Replicates(d) == \E k \in 1..Len(d.tasks) : Len(d.tasks[k].nodes) > 0
-Quiet(hs) == \A n \in hs : LET d == Decide27(n, hs, {}, {}) IN ~Replicates(d) /\ d.del = "none"
-NoTasks(hs) == \A n \in hs : ~Replicates(Decide27(n, hs, {}, {}))
-.\* a check "replicates" when it hands the replicator a task with at least one candidate node. (With overlapping
-\* rules the code as found keeps calling the replicator with an EMPTY candidate list: a holder remembered from
-\* an earlier rule does not lower the shortage of a later rule - a phantom shortage that copies nothing.)
-Replicates(d) == \E k \in 1..Len(d.tasks) : Len(d.tasks[k].nodes) > 0
-Quiet(hs) == \A n \in hs : LET d == Decide27(n, hs, {}, {}) IN ~Replicates(d) /\ d.del = "none"
-NoTasks(hs) == \A n \in hs : ~Replicates(Decide27(n, hs, {}, {}))
-s\* a check "replicates" when it hands the replicator a task with at least one candidate node. (With overlapping
-\* rules the code as found keeps calling the replicator with an EMPTY candidate list: a holder remembered from
-\* an earlier rule does not lower the shortage of a later rule - a phantom shortage that copies nothing.)
-Replicates(d) == \E k \in 1..Len(d.tasks) : Len(d.tasks[k].nodes) > 0
-Quiet(hs) == \A n \in hs : LET d == Decide27(n, hs, {}, {}) IN ~Replicates(d) /\ d.del = "none"
-NoTasks(hs) == \A n \in hs : ~Replicates(Decide27(n, hs, {}, {}))
-t\* a check "replicates" when it hands the replicator a task with at least one candidate node. (With overlapping
-\* rules the code as found keeps calling the replicator with an EMPTY candidate list: a holder remembered from
-\* an earlier rule does not lower the shortage of a later rule - a phantom shortage that copies nothing.)
-Replicates(d) == \E k \in 1..Len(d.tasks) : Len(d.tasks[k].nodes) > 0
-Quiet(hs) == \A n \in hs : LET d == Decide27(n, hs, {}, {}) IN ~Replicates(d) /\ d.del = "none"
-NoTasks(hs) == \A n \in hs : ~Replicates(Decide27(n, hs, {}, {}))
-o\* a check "replicates" when it hands the replicator a task with at least one candidate node. (With overlapping
-\* rules the code as found keeps calling the replicator with an EMPTY candidate list: a holder remembered from
-\* an earlier rule does not lower the shortage of a later rule - a phantom shortage that copies nothing.)
-Replicates(d) == \E k \in 1..Len(d.tasks) : Len(d.tasks[k].nodes) > 0
-Quiet(hs) == \A n \in hs : LET d == Decide27(n, hs, {}, {}) IN ~Replicates(d) /\ d.del = "none"
-NoTasks(hs) == \A n \in hs : ~Replicates(Decide27(n, hs, {}, {}))
-r\* a check "replicates" when it hands the replicator a task with at least one candidate node. (With overlapping
-\* rules the code as found keeps calling the replicator with an EMPTY candidate list: a holder remembered from
-\* an earlier rule does not lower the shortage of a later rule - a phantom shortage that copies nothing.)
-Replicates(d) == \E k \in 1..Len(d.tasks) : Len(d.tasks[k].nodes) > 0
-Quiet(hs) == \A n \in hs : LET d == Decide27(n, hs, {}, {}) IN ~Replicates(d) /\ d.del = "none"
-NoTasks(hs) == \A n \in hs : ~Replicates(Decide27(n, hs, {}, {}))
-e\* a check "replicates" when it hands the replicator a task with at least one candidate node. (With overlapping
-\* rules the code as found keeps calling the replicator with an EMPTY candidate list: a holder remembered from
-\* an earlier rule does not lower the shortage of a later rule - a phantom shortage that copies nothing.)
-Replicates(d) == \E k \in 1..Len(d.tasks) : Len(d.tasks[k].nodes) > 0
-Quiet(hs) == \A n \in hs : LET d == Decide27(n, hs, {}, {}) IN ~Replicates(d) /\ d.del = "none"
-NoTasks(hs) == \A n \in hs : ~Replicates(Decide27(n, hs, {}, {}))
-d\* a check "replicates" when it hands the replicator a task with at least one candidate node. (With overlapping
-\* rules the code as found keeps calling the replicator with an EMPTY candidate list: a holder remembered from
-\* an earlier rule does not lower the shortage of a later rule - a phantom shortage that copies nothing.)
-Replicates(d) == \E k \in 1..Len(d.tasks) : Len(d.tasks[k].nodes) > 0
-Quiet(hs) == \A n \in hs : LET d == Decide27(n, hs, {}, {}) IN ~Replicates(d) /\ d.del = "none"
-NoTasks(hs) == \A n \in hs : ~Replicates(Decide27(n, hs, {}, {}))
-}\* a check "replicates" when it hands the replicator a task with at least one candidate node. (With overlapping
-\* rules the code as found keeps calling the replicator with an EMPTY candidate list: a holder remembered from
-\* an earlier rule does not lower the shortage of a later rule - a phantom shortage that copies nothing.)
-Replicates(d) == \E k \in 1..Len(d.tasks) : Len(d.tasks[k].nodes) > 0
-Quiet(hs) == \A n \in hs : LET d == Decide27(n, hs, {}, {}) IN ~Replicates(d) /\ d.del = "none"
-NoTasks(hs) == \A n \in hs : ~Replicates(Decide27(n, hs, {}, {}))
-]\* a check "replicates" when it hands the replicator a task with at least one candidate node. (With overlapping
-\* rules the code as found keeps calling the replicator with an EMPTY candidate list: a holder remembered from
-\* an earlier rule does not lower the shortage of a later rule - a phantom shortage that copies nothing.)
-Replicates(d) == \E k \in 1..Len(d.tasks) : Len(d.tasks[k].nodes) > 0
-Quiet(hs) == \A n \in hs : LET d == Decide27(n, hs, {}, {}) IN ~Replicates(d) /\ d.del = "none"
-NoTasks(hs) == \A n \in hs : ~Replicates(Decide27(n, hs, {}, {}))
-
-\* a check "replicates" when it hands the replicator a task with at least one candidate node. (With overlapping
-\* rules the code as found keeps calling the replicator with an EMPTY candidate list: a holder remembered from
-\* an earlier rule does not lower the shortage of a later rule - a phantom shortage that copies nothing.)
-Replicates(d) == \E k \in 1..Len(d.tasks) : Len(d.tasks[k].nodes) > 0
-Quiet(hs) == \A n \in hs : LET d == Decide27(n, hs, {}, {}) IN ~Replicates(d) /\ d.del = "none"
-NoTasks(hs) == \A n \in hs : ~Replicates(Decide27(n, hs, {}, {}))
-A\* a check "replicates" when it hands the replicator a task with at least one candidate node. (With overlapping
-\* rules the code as found keeps calling the replicator with an EMPTY candidate list: a holder remembered from
-\* an earlier rule does not lower the shortage of a later rule - a phantom shortage that copies nothing.)
-Replicates(d) == \E k \in 1..Len(d.tasks) : Len(d.tasks[k].nodes) > 0
-Quiet(hs) == \A n \in hs : LET d == Decide27(n, hs, {}, {}) IN ~Replicates(d) /\ d.del = "none"
-NoTasks(hs) == \A n \in hs : ~Replicates(Decide27(n, hs, {}, {}))
-f\* a check "replicates" when it hands the replicator a task with at least one candidate node. (With overlapping
-\* rules the code as found keeps calling the replicator with an EMPTY candidate list: a holder remembered from
-\* an earlier rule does not lower the shortage of a later rule - a phantom shortage that copies nothing.)
-Replicates(d) == \E k \in 1..Len(d.tasks) : Len(d.tasks[k].nodes) > 0
-Quiet(hs) == \A n \in hs : LET d == Decide27(n, hs, {}, {}) IN ~Replicates(d) /\ d.del = "none"
-NoTasks(hs) == \A n \in hs : ~Replicates(Decide27(n, hs, {}, {}))
-t\* a check "replicates" when it hands the replicator a task with at least one candidate node. (With overlapping
-\* rules the code as found keeps calling the replicator with an EMPTY candidate list: a holder remembered from
-\* an earlier rule does not lower the shortage of a later rule - a phantom shortage that copies nothing.)
-Replicates(d) == \E k \in 1..Len(d.tasks) : Len(d.tasks[k].nodes) > 0
-Quiet(hs) == \A n \in hs : LET d == Decide27(n, hs, {}, {}) IN ~Replicates(d) /\ d.del = "none"
-NoTasks(hs) == \A n \in hs : ~Replicates(Decide27(n, hs, {}, {}))
-e\* a check "replicates" when it hands the replicator a task with at least one candidate node. (With overlapping
-\* rules the code as found keeps calling the replicator with an EMPTY candidate list: a holder remembered from
-\* an earlier rule does not lower the shortage of a later rule - a phantom shortage that copies nothing.)
-Replicates(d) == \E k \in 1..Len(d.tasks) : Len(d.tasks[k].nodes) > 0
-Quiet(hs) == \A n \in hs : LET d == Decide27(n, hs, {}, {}) IN ~Replicates(d) /\ d.del = "none"
-NoTasks(hs) == \A n \in hs : ~Replicates(Decide27(n, hs, {}, {}))
-r\* a check "replicates" when it hands the replicator a task with at least one candidate node. (With overlapping
-\* rules the code as found keeps calling the replicator with an EMPTY candidate list: a holder remembered from
-\* an earlier rule does not lower the shortage of a later rule - a phantom shortage that copies nothing.)
-Replicates(d) == \E k \in 1..Len(d.tasks) : Len(d.tasks[k].nodes) > 0
-Quiet(hs) == \A n \in hs : LET d == Decide27(n, hs, {}, {}) IN ~Replicates(d) /\ d.del = "none"
-NoTasks(hs) == \A n \in hs : ~Replicates(Decide27(n, hs, {}, {}))
-(\* a check "replicates" when it hands the replicator a task with at least one candidate node. (With overlapping
-\* rules the code as found keeps calling the replicator with an EMPTY candidate list: a holder remembered from
-\* an earlier rule does not lower the shortage of a later rule - a phantom shortage that copies nothing.)
-Replicates(d) == \E k \in 1..Len(d.tasks) : Len(d.tasks[k].nodes) > 0
-Quiet(hs) == \A n \in hs : LET d == Decide27(n, hs, {}, {}) IN ~Replicates(d) /\ d.del = "none"
-NoTasks(hs) == \A n \in hs : ~Replicates(Decide27(n, hs, {}, {}))
-h\* a check "replicates" when it hands the replicator a task with at least one candidate node. (With overlapping
-\* rules the code as found keeps calling the replicator with an EMPTY candidate list: a holder remembered from
-\* an earlier rule does not lower the shortage of a later rule - a phantom shortage that copies nothing.)
-Replicates(d) == \E k \in 1..Len(d.tasks) : Len(d.tasks[k].nodes) > 0
-Quiet(hs) == \A n \in hs : LET d == Decide27(n, hs, {}, {}) IN ~Replicates(d) /\ d.del = "none"
-NoTasks(hs) == \A n \in hs : ~Replicates(Decide27(n, hs, {}, {}))
-s\* a check "replicates" when it hands the replicator a task with at least one candidate node. (With overlapping
-\* rules the code as found keeps calling the replicator with an EMPTY candidate list: a holder remembered from
-\* an earlier rule does not lower the shortage of a later rule - a phantom shortage that copies nothing.)
-Replicates(d) == \E k \in 1..Len(d.tasks) : Len(d.tasks[k].nodes) > 0
-Quiet(hs) == \A n \in hs : LET d == Decide27(n, hs, {}, {}) IN ~Replicates(d) /\ d.del = "none"
-NoTasks(hs) == \A n \in hs : ~Replicates(Decide27(n, hs, {}, {}))
-,\* a check "replicates" when it hands the replicator a task with at least one candidate node. (With overlapping
-\* rules the code as found keeps calling the replicator with an EMPTY candidate list: a holder remembered from
-\* an earlier rule does not lower the shortage of a later rule - a phantom shortage that copies nothing.)
-Replicates(d) == \E k \in 1..Len(d.tasks) : Len(d.tasks[k].nodes) > 0
-Quiet(hs) == \A n \in hs : LET d == Decide27(n, hs, {}, {}) IN ~Replicates(d) /\ d.del = "none"
-NoTasks(hs) == \A n \in hs : ~Replicates(Decide27(n, hs, {}, {}))
- \* a check "replicates" when it hands the replicator a task with at least one candidate node. (With overlapping
-\* rules the code as found keeps calling the replicator with an EMPTY candidate list: a holder remembered from
-\* an earlier rule does not lower the shortage of a later rule - a phantom shortage that copies nothing.)
-Replicates(d) == \E k \in 1..Len(d.tasks) : Len(d.tasks[k].nodes) > 0
-Quiet(hs) == \A n \in hs : LET d == Decide27(n, hs, {}, {}) IN ~Replicates(d) /\ d.del = "none"
-NoTasks(hs) == \A n \in hs : ~Replicates(Decide27(n, hs, {}, {}))
-d\* a check "replicates" when it hands the replicator a task with at least one candidate node. (With overlapping
-\* rules the code as found keeps calling the replicator with an EMPTY candidate list: a holder remembered from
-\* an earlier rule does not lower the shortage of a later rule - a phantom shortage that copies nothing.)
-Replicates(d) == \E k \in 1..Len(d.tasks) : Len(d.tasks[k].nodes) > 0
-Quiet(hs) == \A n \in hs : LET d == Decide27(n, hs, {}, {}) IN ~Replicates(d) /\ d.del = "none"
-NoTasks(hs) == \A n \in hs : ~Replicates(Decide27(n, hs, {}, {}))
-)\* a check "replicates" when it hands the replicator a task with at least one candidate node. (With overlapping
-\* rules the code as found keeps calling the replicator with an EMPTY candidate list: a holder remembered from
-\* an earlier rule does not lower the shortage of a later rule - a phantom shortage that copies nothing.)
-Replicates(d) == \E k \in 1..Len(d.tasks) : Len(d.tasks[k].nodes) > 0
-Quiet(hs) == \A n \in hs : LET d == Decide27(n, hs, {}, {}) IN ~Replicates(d) /\ d.del = "none"
-NoTasks(hs) == \A n \in hs : ~Replicates(Decide27(n, hs, {}, {}))
- \* a check "replicates" when it hands the replicator a task with at least one candidate node. (With overlapping
-\* rules the code as found keeps calling the replicator with an EMPTY candidate list: a holder remembered from
-\* an earlier rule does not lower the shortage of a later rule - a phantom shortage that copies nothing.)
-Replicates(d) == \E k \in 1..Len(d.tasks) : Len(d.tasks[k].nodes) > 0
-Quiet(hs) == \A n \in hs : LET d == Decide27(n, hs, {}, {}) IN ~Replicates(d) /\ d.del = "none"
-NoTasks(hs) == \A n \in hs : ~Replicates(Decide27(n, hs, {}, {}))
-=\* a check "replicates" when it hands the replicator a task with at least one candidate node. (With overlapping
-\* rules the code as found keeps calling the replicator with an EMPTY candidate list: a holder remembered from
-\* an earlier rule does not lower the shortage of a later rule - a phantom shortage that copies nothing.)
-Replicates(d) == \E k \in 1..Len(d.tasks) : Len(d.tasks[k].nodes) > 0
-Quiet(hs) == \A n \in hs : LET d == Decide27(n, hs, {}, {}) IN ~Replicates(d) /\ d.del = "none"
-NoTasks(hs) == \A n \in hs : ~Replicates(Decide27(n, hs, {}, {}))
-=\* a check "replicates" when it hands the replicator a task with at least one candidate node. (With overlapping
-\* rules the code as found keeps calling the replicator with an EMPTY candidate list: a holder remembered from
-\* an earlier rule does not lower the shortage of a later rule - a phantom shortage that copies nothing.)
-Replicates(d) == \E k \in 1..Len(d.tasks) : Len(d.tasks[k].nodes) > 0
-Quiet(hs) == \A n \in hs : LET d == Decide27(n, hs, {}, {}) IN ~Replicates(d) /\ d.del = "none"
-NoTasks(hs) == \A n \in hs : ~Replicates(Decide27(n, hs, {}, {}))
- \* a check "replicates" when it hands the replicator a task with at least one candidate node. (With overlapping
-\* rules the code as found keeps calling the replicator with an EMPTY candidate list: a holder remembered from
-\* an earlier rule does not lower the shortage of a later rule - a phantom shortage that copies nothing.)
-Replicates(d) == \E k \in 1..Len(d.tasks) : Len(d.tasks[k].nodes) > 0
-Quiet(hs) == \A n \in hs : LET d == Decide27(n, hs, {}, {}) IN ~Replicates(d) /\ d.del = "none"
-NoTasks(hs) == \A n \in hs : ~Replicates(Decide27(n, hs, {}, {}))
-(\* a check "replicates" when it hands the replicator a task with at least one candidate node. (With overlapping
-\* rules the code as found keeps calling the replicator with an EMPTY candidate list: a holder remembered from
-\* an earlier rule does not lower the shortage of a later rule - a phantom shortage that copies nothing.)
-Replicates(d) == \E k \in 1..Len(d.tasks) : Len(d.tasks[k].nodes) > 0
-Quiet(hs) == \A n \in hs : LET d == Decide27(n, hs, {}, {}) IN ~Replicates(d) /\ d.del = "none"
-NoTasks(hs) == \A n \in hs : ~Replicates(Decide27(n, hs, {}, {}))
-h\* a check "replicates" when it hands the replicator a task with at least one candidate node. (With overlapping
-\* rules the code as found keeps calling the replicator with an EMPTY candidate list: a holder remembered from
-\* an earlier rule does not lower the shortage of a later rule - a phantom shortage that copies nothing.)
-Replicates(d) == \E k \in 1..Len(d.tasks) : Len(d.tasks[k].nodes) > 0
-Quiet(hs) == \A n \in hs : LET d == Decide27(n, hs, {}, {}) IN ~Replicates(d) /\ d.del = "none"
-NoTasks(hs) == \A n \in hs : ~Replicates(Decide27(n, hs, {}, {}))
-s\* a check "replicates" when it hands the replicator a task with at least one candidate node. (With overlapping
-\* rules the code as found keeps calling the replicator with an EMPTY candidate list: a holder remembered from
-\* an earlier rule does not lower the shortage of a later rule - a phantom shortage that copies nothing.)
-Replicates(d) == \E k \in 1..Len(d.tasks) : Len(d.tasks[k].nodes) > 0
-Quiet(hs) == \A n \in hs : LET d == Decide27(n, hs, {}, {}) IN ~Replicates(d) /\ d.del = "none"
-NoTasks(hs) == \A n \in hs : ~Replicates(Decide27(n, hs, {}, {}))
- \* a check "replicates" when it hands the replicator a task with at least one candidate node. (With overlapping
-\* rules the code as found keeps calling the replicator with an EMPTY candidate list: a holder remembered from
-\* an earlier rule does not lower the shortage of a later rule - a phantom shortage that copies nothing.)
-Replicates(d) == \E k \in 1..Len(d.tasks) : Len(d.tasks[k].nodes) > 0
-Quiet(hs) == \A n \in hs : LET d == Decide27(n, hs, {}, {}) IN ~Replicates(d) /\ d.del = "none"
-NoTasks(hs) == \A n \in hs : ~Replicates(Decide27(n, hs, {}, {}))
-\\* a check "replicates" when it hands the replicator a task with at least one candidate node. (With overlapping
-\* rules the code as found keeps calling the replicator with an EMPTY candidate list: a holder remembered from
-\* an earlier rule does not lower the shortage of a later rule - a phantom shortage that copies nothing.)
-Replicates(d) == \E k \in 1..Len(d.tasks) : Len(d.tasks[k].nodes) > 0
-Quiet(hs) == \A n \in hs : LET d == Decide27(n, hs, {}, {}) IN ~Replicates(d) /\ d.del = "none"
-NoTasks(hs) == \A n \in hs : ~Replicates(Decide27(n, hs, {}, {}))
-c\* a check "replicates" when it hands the replicator a task with at least one candidate node. (With overlapping
-\* rules the code as found keeps calling the replicator with an EMPTY candidate list: a holder remembered from
-\* an earlier rule does not lower the shortage of a later rule - a phantom shortage that copies nothing.)
-Replicates(d) == \E k \in 1..Len(d.tasks) : Len(d.tasks[k].nodes) > 0
-Quiet(hs) == \A n \in hs : LET d == Decide27(n, hs, {}, {}) IN ~Replicates(d) /\ d.del = "none"
-NoTasks(hs) == \A n \in hs : ~Replicates(Decide27(n, hs, {}, {}))
-u\* a check "replicates" when it hands the replicator a task with at least one candidate node. (With overlapping
-\* rules the code as found keeps calling the replicator with an EMPTY candidate list: a holder remembered from
-\* an earlier rule does not lower the shortage of a later rule - a phantom shortage that copies nothing.)
-Replicates(d) == \E k \in 1..Len(d.tasks) : Len(d.tasks[k].nodes) > 0
-Quiet(hs) == \A n \in hs : LET d == Decide27(n, hs, {}, {}) IN ~Replicates(d) /\ d.del = "none"
-NoTasks(hs) == \A n \in hs : ~Replicates(Decide27(n, hs, {}, {}))
-p\* a check "replicates" when it hands the replicator a task with at least one candidate node. (With overlapping
-\* rules the code as found keeps calling the replicator with an EMPTY candidate list: a holder remembered from
-\* an earlier rule does not lower the shortage of a later rule - a phantom shortage that copies nothing.)
-Replicates(d) == \E k \in 1..Len(d.tasks) : Len(d.tasks[k].nodes) > 0
-Quiet(hs) == \A n \in hs : LET d == Decide27(n, hs, {}, {}) IN ~Replicates(d) /\ d.del = "none"
-NoTasks(hs) == \A n \in hs : ~Replicates(Decide27(n, hs, {}, {}))
- \* a check "replicates" when it hands the replicator a task with at least one candidate node. (With overlapping
-\* rules the code as found keeps calling the replicator with an EMPTY candidate list: a holder remembered from
-\* an earlier rule does not lower the shortage of a later rule - a phantom shortage that copies nothing.)
-Replicates(d) == \E k \in 1..Len(d.tasks) : Len(d.tasks[k].nodes) > 0
-Quiet(hs) == \A n \in hs : LET d == Decide27(n, hs, {}, {}) IN ~Replicates(d) /\ d.del = "none"
-NoTasks(hs) == \A n \in hs : ~Replicates(Decide27(n, hs, {}, {}))
-d\* a check "replicates" when it hands the replicator a task with at least one candidate node. (With overlapping
-\* rules the code as found keeps calling the replicator with an EMPTY candidate list: a holder remembered from
-\* an earlier rule does not lower the shortage of a later rule - a phantom shortage that copies nothing.)
-Replicates(d) == \E k \in 1..Len(d.tasks) : Len(d.tasks[k].nodes) > 0
-Quiet(hs) == \A n \in hs : LET d == Decide27(n, hs, {}, {}) IN ~Replicates(d) /\ d.del = "none"
-NoTasks(hs) == \A n \in hs : ~Replicates(Decide27(n, hs, {}, {}))
-.\* a check "replicates" when it hands the replicator a task with at least one candidate node. (With overlapping
-\* rules the code as found keeps calling the replicator with an EMPTY candidate list: a holder remembered from
-\* an earlier rule does not lower the shortage of a later rule - a phantom shortage that copies nothing.)
-Replicates(d) == \E k \in 1..Len(d.tasks) : Len(d.tasks[k].nodes) > 0
-Quiet(hs) == \A n \in hs : LET d == Decide27(n, hs, {}, {}) IN ~Replicates(d) /\ d.del = "none"
-NoTasks(hs) == \A n \in hs : ~Replicates(Decide27(n, hs, {}, {}))
-s\* a check "replicates" when it hands the replicator a task with at least one candidate node. (With overlapping
-\* rules the code as found keeps calling the replicator with an EMPTY candidate list: a holder remembered from
-\* an earlier rule does not lower the shortage of a later rule - a phantom shortage that copies nothing.)
-Replicates(d) == \E k \in 1..Len(d.tasks) : Len(d.tasks[k].nodes) > 0
-Quiet(hs) == \A n \in hs : LET d == Decide27(n, hs, {}, {}) IN ~Replicates(d) /\ d.del = "none"
-NoTasks(hs) == \A n \in hs : ~Replicates(Decide27(n, hs, {}, {}))
-t\* a check "replicates" when it hands the replicator a task with at least one candidate node. (With overlapping
-\* rules the code as found keeps calling the replicator with an EMPTY candidate list: a holder remembered from
-\* an earlier rule does not lower the shortage of a later rule - a phantom shortage that copies nothing.)
-Replicates(d) == \E k \in 1..Len(d.tasks) : Len(d.tasks[k].nodes) > 0
-Quiet(hs) == \A n \in hs : LET d == Decide27(n, hs, {}, {}) IN ~Replicates(d) /\ d.del = "none"
-NoTasks(hs) == \A n \in hs : ~Replicates(Decide27(n, hs, {}, {}))
-o\* a check "replicates" when it hands the replicator a task with at least one candidate node. (With overlapping
-\* rules the code as found keeps calling the replicator with an EMPTY candidate list: a holder remembered from
-\* an earlier rule does not lower the shortage of a later rule - a phantom shortage that copies nothing.)
-Replicates(d) == \E k \in 1..Len(d.tasks) : Len(d.tasks[k].nodes) > 0
-Quiet(hs) == \A n \in hs : LET d == Decide27(n, hs, {}, {}) IN ~Replicates(d) /\ d.del = "none"
-NoTasks(hs) == \A n \in hs : ~Replicates(Decide27(n, hs, {}, {}))
-r\* a check "replicates" when it hands the replicator a task with at least one candidate node. (With overlapping
-\* rules the code as found keeps calling the replicator with an EMPTY candidate list: a holder remembered from
-\* an earlier rule does not lower the shortage of a later rule - a phantom shortage that copies nothing.)
-Replicates(d) == \E k \in 1..Len(d.tasks) : Len(d.tasks[k].nodes) > 0
-Quiet(hs) == \A n \in hs : LET d == Decide27(n, hs, {}, {}) IN ~Replicates(d) /\ d.del = "none"
-NoTasks(hs) == \A n \in hs : ~Replicates(Decide27(n, hs, {}, {}))
-e\* a check "replicates" when it hands the replicator a task with at least one candidate node. (With overlapping
-\* rules the code as found keeps calling the replicator with an EMPTY candidate list: a holder remembered from
-\* an earlier rule does not lower the shortage of a later rule - a phantom shortage that copies nothing.)
-Replicates(d) == \E k \in 1..Len(d.tasks) : Len(d.tasks[k].nodes) > 0
-Quiet(hs) == \A n \in hs : LET d == Decide27(n, hs, {}, {}) IN ~Replicates(d) /\ d.del = "none"
-NoTasks(hs) == \A n \in hs : ~Replicates(Decide27(n, hs, {}, {}))
-d\* a check "replicates" when it hands the replicator a task with at least one candidate node. (With overlapping
-\* rules the code as found keeps calling the replicator with an EMPTY candidate list: a holder remembered from
-\* an earlier rule does not lower the shortage of a later rule - a phantom shortage that copies nothing.)
-Replicates(d) == \E k \in 1..Len(d.tasks) : Len(d.tasks[k].nodes) > 0
-Quiet(hs) == \A n \in hs : LET d == Decide27(n, hs, {}, {}) IN ~Replicates(d) /\ d.del = "none"
-NoTasks(hs) == \A n \in hs : ~Replicates(Decide27(n, hs, {}, {}))
-)\* a check "replicates" when it hands the replicator a task with at least one candidate node. (With overlapping
-\* rules the code as found keeps calling the replicator with an EMPTY candidate list: a holder remembered from
-\* an earlier rule does not lower the shortage of a later rule - a phantom shortage that copies nothing.)
-Replicates(d) == \E k \in 1..Len(d.tasks) : Len(d.tasks[k].nodes) > 0
-Quiet(hs) == \A n \in hs : LET d == Decide27(n, hs, {}, {}) IN ~Replicates(d) /\ d.del = "none"
-NoTasks(hs) == \A n \in hs : ~Replicates(Decide27(n, hs, {}, {}))
- \* a check "replicates" when it hands the replicator a task with at least one candidate node. (With overlapping
-\* rules the code as found keeps calling the replicator with an EMPTY candidate list: a holder remembered from
-\* an earlier rule does not lower the shortage of a later rule - a phantom shortage that copies nothing.)
-Replicates(d) == \E k \in 1..Len(d.tasks) : Len(d.tasks[k].nodes) > 0
-Quiet(hs) == \A n \in hs : LET d == Decide27(n, hs, {}, {}) IN ~Replicates(d) /\ d.del = "none"
-NoTasks(hs) == \A n \in hs : ~Replicates(Decide27(n, hs, {}, {}))
-\\* a check "replicates" when it hands the replicator a task with at least one candidate node. (With overlapping
-\* rules the code as found keeps calling the replicator with an EMPTY candidate list: a holder remembered from
-\* an earlier rule does not lower the shortage of a later rule - a phantom shortage that copies nothing.)
-Replicates(d) == \E k \in 1..Len(d.tasks) : Len(d.tasks[k].nodes) > 0
-Quiet(hs) == \A n \in hs : LET d == Decide27(n, hs, {}, {}) IN ~Replicates(d) /\ d.del = "none"
-NoTasks(hs) == \A n \in hs : ~Replicates(Decide27(n, hs, {}, {}))
- \* a check "replicates" when it hands the replicator a task with at least one candidate node. (With overlapping
-\* rules the code as found keeps calling the replicator with an EMPTY candidate list: a holder remembered from
-\* an earlier rule does not lower the shortage of a later rule - a phantom shortage that copies nothing.)
-Replicates(d) == \E k \in 1..Len(d.tasks) : Len(d.tasks[k].nodes) > 0
-Quiet(hs) == \A n \in hs : LET d == Decide27(n, hs, {}, {}) IN ~Replicates(d) /\ d.del = "none"
-NoTasks(hs) == \A n \in hs : ~Replicates(Decide27(n, hs, {}, {}))
-(\* a check "replicates" when it hands the replicator a task with at least one candidate node. (With overlapping
-\* rules the code as found keeps calling the replicator with an EMPTY candidate list: a holder remembered from
-\* an earlier rule does not lower the shortage of a later rule - a phantom shortage that copies nothing.)
-Replicates(d) == \E k \in 1..Len(d.tasks) : Len(d.tasks[k].nodes) > 0
-Quiet(hs) == \A n \in hs : LET d == Decide27(n, hs, {}, {}) IN ~Replicates(d) /\ d.del = "none"
-NoTasks(hs) == \A n \in hs : ~Replicates(Decide27(n, hs, {}, {}))
-I\* a check "replicates" when it hands the replicator a task with at least one candidate node. (With overlapping
-\* rules the code as found keeps calling the replicator with an EMPTY candidate list: a holder remembered from
-\* an earlier rule does not lower the shortage of a later rule - a phantom shortage that copies nothing.)
-Replicates(d) == \E k \in 1..Len(d.tasks) : Len(d.tasks[k].nodes) > 0
-Quiet(hs) == \A n \in hs : LET d == Decide27(n, hs, {}, {}) IN ~Replicates(d) /\ d.del = "none"
-NoTasks(hs) == \A n \in hs : ~Replicates(Decide27(n, hs, {}, {}))
-F\* a check "replicates" when it hands the replicator a task with at least one candidate node. (With overlapping
-\* rules the code as found keeps calling the replicator with an EMPTY candidate list: a holder remembered from
-\* an earlier rule does not lower the shortage of a later rule - a phantom shortage that copies nothing.)
-Replicates(d) == \E k \in 1..Len(d.tasks) : Len(d.tasks[k].nodes) > 0
-Quiet(hs) == \A n \in hs : LET d == Decide27(n, hs, {}, {}) IN ~Replicates(d) /\ d.del = "none"
-NoTasks(hs) == \A n \in hs : ~Replicates(Decide27(n, hs, {}, {}))
- \* a check "replicates" when it hands the replicator a task with at least one candidate node. (With overlapping
-\* rules the code as found keeps calling the replicator with an EMPTY candidate list: a holder remembered from
-\* an earlier rule does not lower the shortage of a later rule - a phantom shortage that copies nothing.)
-Replicates(d) == \E k \in 1..Len(d.tasks) : Len(d.tasks[k].nodes) > 0
-Quiet(hs) == \A n \in hs : LET d == Decide27(n, hs, {}, {}) IN ~Replicates(d) /\ d.del = "none"
-NoTasks(hs) == \A n \in hs : ~Replicates(Decide27(n, hs, {}, {}))
-d\* a check "replicates" when it hands the replicator a task with at least one candidate node. (With overlapping
-\* rules the code as found keeps calling the replicator with an EMPTY candidate list: a holder remembered from
-\* an earlier rule does not lower the shortage of a later rule - a phantom shortage that copies nothing.)
-Replicates(d) == \E k \in 1..Len(d.tasks) : Len(d.tasks[k].nodes) > 0
-Quiet(hs) == \A n \in hs : LET d == Decide27(n, hs, {}, {}) IN ~Replicates(d) /\ d.del = "none"
-NoTasks(hs) == \A n \in hs : ~Replicates(Decide27(n, hs, {}, {}))
-.\* a check "replicates" when it hands the replicator a task with at least one candidate node. (With overlapping
-\* rules the code as found keeps calling the replicator with an EMPTY candidate list: a holder remembered from
-\* an earlier rule does not lower the shortage of a later rule - a phantom shortage that copies nothing.)
-Replicates(d) == \E k \in 1..Len(d.tasks) : Len(d.tasks[k].nodes) > 0
-Quiet(hs) == \A n \in hs : LET d == Decide27(n, hs, {}, {}) IN ~Replicates(d) /\ d.del = "none"
-NoTasks(hs) == \A n \in hs : ~Replicates(Decide27(n, hs, {}, {}))
-d\* a check "replicates" when it hands the replicator a task with at least one candidate node. (With overlapping
-\* rules the code as found keeps calling the replicator with an EMPTY candidate list: a holder remembered from
-\* an earlier rule does not lower the shortage of a later rule - a phantom shortage that copies nothing.)
-Replicates(d) == \E k \in 1..Len(d.tasks) : Len(d.tasks[k].nodes) > 0
-Quiet(hs) == \A n \in hs : LET d == Decide27(n, hs, {}, {}) IN ~Replicates(d) /\ d.del = "none"
-NoTasks(hs) == \A n \in hs : ~Replicates(Decide27(n, hs, {}, {}))
-e\* a check "replicates" when it hands the replicator a task with at least one candidate node. (With overlapping
-\* rules the code as found keeps calling the replicator with an EMPTY candidate list: a holder remembered from
-\* an earlier rule does not lower the shortage of a later rule - a phantom shortage that copies nothing.)
-Replicates(d) == \E k \in 1..Len(d.tasks) : Len(d.tasks[k].nodes) > 0
-Quiet(hs) == \A n \in hs : LET d == Decide27(n, hs, {}, {}) IN ~Replicates(d) /\ d.del = "none"
-NoTasks(hs) == \A n \in hs : ~Replicates(Decide27(n, hs, {}, {}))
-l\* a check "replicates" when it hands the replicator a task with at least one candidate node. (With overlapping
-\* rules the code as found keeps calling the replicator with an EMPTY candidate list: a holder remembered from
-\* an earlier rule does not lower the shortage of a later rule - a phantom shortage that copies nothing.)
-Replicates(d) == \E k \in 1..Len(d.tasks) : Len(d.tasks[k].nodes) > 0
-Quiet(hs) == \A n \in hs : LET d == Decide27(n, hs, {}, {}) IN ~Replicates(d) /\ d.del = "none"
-NoTasks(hs) == \A n \in hs : ~Replicates(Decide27(n, hs, {}, {}))
- \* a check "replicates" when it hands the replicator a task with at least one candidate node. (With overlapping
-\* rules the code as found keeps calling the replicator with an EMPTY candidate list: a holder remembered from
-\* an earlier rule does not lower the shortage of a later rule - a phantom shortage that copies nothing.)
-Replicates(d) == \E k \in 1..Len(d.tasks) : Len(d.tasks[k].nodes) > 0
-Quiet(hs) == \A n \in hs : LET d == Decide27(n, hs, {}, {}) IN ~Replicates(d) /\ d.del = "none"
-NoTasks(hs) == \A n \in hs : ~Replicates(Decide27(n, hs, {}, {}))
-#\* a check "replicates" when it hands the replicator a task with at least one candidate node. (With overlapping
-\* rules the code as found keeps calling the replicator with an EMPTY candidate list: a holder remembered from
-\* an earlier rule does not lower the shortage of a later rule - a phantom shortage that copies nothing.)
-Replicates(d) == \E k \in 1..Len(d.tasks) : Len(d.tasks[k].nodes) > 0
-Quiet(hs) == \A n \in hs : LET d == Decide27(n, hs, {}, {}) IN ~Replicates(d) /\ d.del = "none"
-NoTasks(hs) == \A n \in hs : ~Replicates(Decide27(n, hs, {}, {}))
- \* a check "replicates" when it hands the replicator a task with at least one candidate node. (With overlapping
-\* rules the code as found keeps calling the replicator with an EMPTY candidate list: a holder remembered from
-\* an earlier rule does not lower the shortage of a later rule - a phantom shortage that copies nothing.)
-Replicates(d) == \E k \in 1..Len(d.tasks) : Len(d.tasks[k].nodes) > 0
-Quiet(hs) == \A n \in hs : LET d == Decide27(n, hs, {}, {}) IN ~Replicates(d) /\ d.del = "none"
-NoTasks(hs) == \A n \in hs : ~Replicates(Decide27(n, hs, {}, {}))
-"\* a check "replicates" when it hands the replicator a task with at least one candidate node. (With overlapping
-\* rules the code as found keeps calling the replicator with an EMPTY candidate list: a holder remembered from
-\* an earlier rule does not lower the shortage of a later rule - a phantom shortage that copies nothing.)
-Replicates(d) == \E k \in 1..Len(d.tasks) : Len(d.tasks[k].nodes) > 0
-Quiet(hs) == \A n \in hs : LET d == Decide27(n, hs, {}, {}) IN ~Replicates(d) /\ d.del = "none"
-NoTasks(hs) == \A n \in hs : ~Replicates(Decide27(n, hs, {}, {}))
-n\* a check "replicates" when it hands the replicator a task with at least one candidate node. (With overlapping
-\* rules the code as found keeps calling the replicator with an EMPTY candidate list: a holder remembered from
-\* an earlier rule does not lower the shortage of a later rule - a phantom shortage that copies nothing.)
-Replicates(d) == \E k \in 1..Len(d.tasks) : Len(d.tasks[k].nodes) > 0
-Quiet(hs) == \A n \in hs : LET d == Decide27(n, hs, {}, {}) IN ~Replicates(d) /\ d.del = "none"
-NoTasks(hs) == \A n \in hs : ~Replicates(Decide27(n, hs, {}, {}))
-o\* a check "replicates" when it hands the replicator a task with at least one candidate node. (With overlapping
-\* rules the code as found keeps calling the replicator with an EMPTY candidate list: a holder remembered from
-\* an earlier rule does not lower the shortage of a later rule - a phantom shortage that copies nothing.)
-Replicates(d) == \E k \in 1..Len(d.tasks) : Len(d.tasks[k].nodes) > 0
-Quiet(hs) == \A n \in hs : LET d == Decide27(n, hs, {}, {}) IN ~Replicates(d) /\ d.del = "none"
-NoTasks(hs) == \A n \in hs : ~Replicates(Decide27(n, hs, {}, {}))
-n\* a check "replicates" when it hands the replicator a task with at least one candidate node. (With overlapping
-\* rules the code as found keeps calling the replicator with an EMPTY candidate list: a holder remembered from
-\* an earlier rule does not lower the shortage of a later rule - a phantom shortage that copies nothing.)
-Replicates(d) == \E k \in 1..Len(d.tasks) : Len(d.tasks[k].nodes) > 0
-Quiet(hs) == \A n \in hs : LET d == Decide27(n, hs, {}, {}) IN ~Replicates(d) /\ d.del = "none"
-NoTasks(hs) == \A n \in hs : ~Replicates(Decide27(n, hs, {}, {}))
-e\* a check "replicates" when it hands the replicator a task with at least one candidate node. (With overlapping
-\* rules the code as found keeps calling the replicator with an EMPTY candidate list: a holder remembered from
-\* an earlier rule does not lower the shortage of a later rule - a phantom shortage that copies nothing.)
-Replicates(d) == \E k \in 1..Len(d.tasks) : Len(d.tasks[k].nodes) > 0
-Quiet(hs) == \A n \in hs : LET d == Decide27(n, hs, {}, {}) IN ~Replicates(d) /\ d.del = "none"
-NoTasks(hs) == \A n \in hs : ~Replicates(Decide27(n, hs, {}, {}))
-"\* a check "replicates" when it hands the replicator a task with at least one candidate node. (With overlapping
-\* rules the code as found keeps calling the replicator with an EMPTY candidate list: a holder remembered from
-\* an earlier rule does not lower the shortage of a later rule - a phantom shortage that copies nothing.)
-Replicates(d) == \E k \in 1..Len(d.tasks) : Len(d.tasks[k].nodes) > 0
-Quiet(hs) == \A n \in hs : LET d == Decide27(n, hs, {}, {}) IN ~Replicates(d) /\ d.del = "none"
-NoTasks(hs) == \A n \in hs : ~Replicates(Decide27(n, hs, {}, {}))
- \* a check "replicates" when it hands the replicator a task with at least one candidate node. (With overlapping
-\* rules the code as found keeps calling the replicator with an EMPTY candidate list: a holder remembered from
-\* an earlier rule does not lower the shortage of a later rule - a phantom shortage that copies nothing.)
-Replicates(d) == \E k \in 1..Len(d.tasks) : Len(d.tasks[k].nodes) > 0
-Quiet(hs) == \A n \in hs : LET d == Decide27(n, hs, {}, {}) IN ~Replicates(d) /\ d.del = "none"
-NoTasks(hs) == \A n \in hs : ~Replicates(Decide27(n, hs, {}, {}))
-T\* a check "replicates" when it hands the replicator a task with at least one candidate node. (With overlapping
-\* rules the code as found keeps calling the replicator with an EMPTY candidate list: a holder remembered from
-\* an earlier rule does not lower the shortage of a later rule - a phantom shortage that copies nothing.)
-Replicates(d) == \E k \in 1..Len(d.tasks) : Len(d.tasks[k].nodes) > 0
-Quiet(hs) == \A n \in hs : LET d == Decide27(n, hs, {}, {}) IN ~Replicates(d) /\ d.del = "none"
-NoTasks(hs) == \A n \in hs : ~Replicates(Decide27(n, hs, {}, {}))
-H\* a check "replicates" when it hands the replicator a task with at least one candidate node. (With overlapping
-\* rules the code as found keeps calling the replicator with an EMPTY candidate list: a holder remembered from
-\* an earlier rule does not lower the shortage of a later rule - a phantom shortage that copies nothing.)
-Replicates(d) == \E k \in 1..Len(d.tasks) : Len(d.tasks[k].nodes) > 0
-Quiet(hs) == \A n \in hs : LET d == Decide27(n, hs, {}, {}) IN ~Replicates(d) /\ d.del = "none"
-NoTasks(hs) == \A n \in hs : ~Replicates(Decide27(n, hs, {}, {}))
-E\* a check "replicates" when it hands the replicator a task with at least one candidate node. (With overlapping
-\* rules the code as found keeps calling the replicator with an EMPTY candidate list: a holder remembered from
-\* an earlier rule does not lower the shortage of a later rule - a phantom shortage that copies nothing.)
-Replicates(d) == \E k \in 1..Len(d.tasks) : Len(d.tasks[k].nodes) > 0
-Quiet(hs) == \A n \in hs : LET d == Decide27(n, hs, {}, {}) IN ~Replicates(d) /\ d.del = "none"
-NoTasks(hs) == \A n \in hs : ~Replicates(Decide27(n, hs, {}, {}))
-N\* a check "replicates" when it hands the replicator a task with at least one candidate node. (With overlapping
-\* rules the code as found keeps calling the replicator with an EMPTY candidate list: a holder remembered from
-\* an earlier rule does not lower the shortage of a later rule - a phantom shortage that copies nothing.)
-Replicates(d) == \E k \in 1..Len(d.tasks) : Len(d.tasks[k].nodes) > 0
-Quiet(hs) == \A n \in hs : LET d == Decide27(n, hs, {}, {}) IN ~Replicates(d) /\ d.del = "none"
-NoTasks(hs) == \A n \in hs : ~Replicates(Decide27(n, hs, {}, {}))
- \* a check "replicates" when it hands the replicator a task with at least one candidate node. (With overlapping
-\* rules the code as found keeps calling the replicator with an EMPTY candidate list: a holder remembered from
-\* an earlier rule does not lower the shortage of a later rule - a phantom shortage that copies nothing.)
-Replicates(d) == \E k \in 1..Len(d.tasks) : Len(d.tasks[k].nodes) > 0
-Quiet(hs) == \A n \in hs : LET d == Decide27(n, hs, {}, {}) IN ~Replicates(d) /\ d.del = "none"
-NoTasks(hs) == \A n \in hs : ~Replicates(Decide27(n, hs, {}, {}))
-{\* a check "replicates" when it hands the replicator a task with at least one candidate node. (With overlapping
-\* rules the code as found keeps calling the replicator with an EMPTY candidate list: a holder remembered from
-\* an earlier rule does not lower the shortage of a later rule - a phantom shortage that copies nothing.)
-Replicates(d) == \E k \in 1..Len(d.tasks) : Len(d.tasks[k].nodes) > 0
-Quiet(hs) == \A n \in hs : LET d == Decide27(n, hs, {}, {}) IN ~Replicates(d) /\ d.del = "none"
-NoTasks(hs) == \A n \in hs : ~Replicates(Decide27(n, hs, {}, {}))
-d\* a check "replicates" when it hands the replicator a task with at least one candidate node. (With overlapping
-\* rules the code as found keeps calling the replicator with an EMPTY candidate list: a holder remembered from
-\* an earlier rule does not lower the shortage of a later rule - a phantom shortage that copies nothing.)
-Replicates(d) == \E k \in 1..Len(d.tasks) : Len(d.tasks[k].nodes) > 0
-Quiet(hs) == \A n \in hs : LET d == Decide27(n, hs, {}, {}) IN ~Replicates(d) /\ d.del = "none"
-NoTasks(hs) == \A n \in hs : ~Replicates(Decide27(n, hs, {}, {}))
-.\* a check "replicates" when it hands the replicator a task with at least one candidate node. (With overlapping
-\* rules the code as found keeps calling the replicator with an EMPTY candidate list: a holder remembered from
-\* an earlier rule does not lower the shortage of a later rule - a phantom shortage that copies nothing.)
-Replicates(d) == \E k \in 1..Len(d.tasks) : Len(d.tasks[k].nodes) > 0
-Quiet(hs) == \A n \in hs : LET d == Decide27(n, hs, {}, {}) IN ~Replicates(d) /\ d.del = "none"
-NoTasks(hs) == \A n \in hs : ~Replicates(Decide27(n, hs, {}, {}))
-n\* a check "replicates" when it hands the replicator a task with at least one candidate node. (With overlapping
-\* rules the code as found keeps calling the replicator with an EMPTY candidate list: a holder remembered from
-\* an earlier rule does not lower the shortage of a later rule - a phantom shortage that copies nothing.)
-Replicates(d) == \E k \in 1..Len(d.tasks) : Len(d.tasks[k].nodes) > 0
-Quiet(hs) == \A n \in hs : LET d == Decide27(n, hs, {}, {}) IN ~Replicates(d) /\ d.del = "none"
-NoTasks(hs) == \A n \in hs : ~Replicates(Decide27(n, hs, {}, {}))
-o\* a check "replicates" when it hands the replicator a task with at least one candidate node. (With overlapping
-\* rules the code as found keeps calling the replicator with an EMPTY candidate list: a holder remembered from
-\* an earlier rule does not lower the shortage of a later rule - a phantom shortage that copies nothing.)
-Replicates(d) == \E k \in 1..Len(d.tasks) : Len(d.tasks[k].nodes) > 0
-Quiet(hs) == \A n \in hs : LET d == Decide27(n, hs, {}, {}) IN ~Replicates(d) /\ d.del = "none"
-NoTasks(hs) == \A n \in hs : ~Replicates(Decide27(n, hs, {}, {}))
-d\* a check "replicates" when it hands the replicator a task with at least one candidate node. (With overlapping
-\* rules the code as found keeps calling the replicator with an EMPTY candidate list: a holder remembered from
-\* an earlier rule does not lower the shortage of a later rule - a phantom shortage that copies nothing.)
-Replicates(d) == \E k \in 1..Len(d.tasks) : Len(d.tasks[k].nodes) > 0
-Quiet(hs) == \A n \in hs : LET d == Decide27(n, hs, {}, {}) IN ~Replicates(d) /\ d.del = "none"
-NoTasks(hs) == \A n \in hs : ~Replicates(Decide27(n, hs, {}, {}))
-e\* a check "replicates" when it hands the replicator a task with at least one candidate node. (With overlapping
-\* rules the code as found keeps calling the replicator with an EMPTY candidate list: a holder remembered from
-\* an earlier rule does not lower the shortage of a later rule - a phantom shortage that copies nothing.)
-Replicates(d) == \E k \in 1..Len(d.tasks) : Len(d.tasks[k].nodes) > 0
-Quiet(hs) == \A n \in hs : LET d == Decide27(n, hs, {}, {}) IN ~Replicates(d) /\ d.del = "none"
-NoTasks(hs) == \A n \in hs : ~Replicates(Decide27(n, hs, {}, {}))
-}\* a check "replicates" when it hands the replicator a task with at least one candidate node. (With overlapping
-\* rules the code as found keeps calling the replicator with an EMPTY candidate list: a holder remembered from
-\* an earlier rule does not lower the shortage of a later rule - a phantom shortage that copies nothing.)
-Replicates(d) == \E k \in 1..Len(d.tasks) : Len(d.tasks[k].nodes) > 0
-Quiet(hs) == \A n \in hs : LET d == Decide27(n, hs, {}, {}) IN ~Replicates(d) /\ d.del = "none"
-NoTasks(hs) == \A n \in hs : ~Replicates(Decide27(n, hs, {}, {}))
- \* a check "replicates" when it hands the replicator a task with at least one candidate node. (With overlapping
-\* rules the code as found keeps calling the replicator with an EMPTY candidate list: a holder remembered from
-\* an earlier rule does not lower the shortage of a later rule - a phantom shortage that copies nothing.)
-Replicates(d) == \E k \in 1..Len(d.tasks) : Len(d.tasks[k].nodes) > 0
-Quiet(hs) == \A n \in hs : LET d == Decide27(n, hs, {}, {}) IN ~Replicates(d) /\ d.del = "none"
-NoTasks(hs) == \A n \in hs : ~Replicates(Decide27(n, hs, {}, {}))
-E\* a check "replicates" when it hands the replicator a task with at least one candidate node. (With overlapping
-\* rules the code as found keeps calling the replicator with an EMPTY candidate list: a holder remembered from
-\* an earlier rule does not lower the shortage of a later rule - a phantom shortage that copies nothing.)
-Replicates(d) == \E k \in 1..Len(d.tasks) : Len(d.tasks[k].nodes) > 0
-Quiet(hs) == \A n \in hs : LET d == Decide27(n, hs, {}, {}) IN ~Replicates(d) /\ d.del = "none"
-NoTasks(hs) == \A n \in hs : ~Replicates(Decide27(n, hs, {}, {}))
-L\* a check "replicates" when it hands the replicator a task with at least one candidate node. (With overlapping
-\* rules the code as found keeps calling the replicator with an EMPTY candidate list: a holder remembered from
-\* an earlier rule does not lower the shortage of a later rule - a phantom shortage that copies nothing.)
-Replicates(d) == \E k \in 1..Len(d.tasks) : Len(d.tasks[k].nodes) > 0
-Quiet(hs) == \A n \in hs : LET d == Decide27(n, hs, {}, {}) IN ~Replicates(d) /\ d.del = "none"
-NoTasks(hs) == \A n \in hs : ~Replicates(Decide27(n, hs, {}, {}))
-S\* a check "replicates" when it hands the replicator a task with at least one candidate node. (With overlapping
-\* rules the code as found keeps calling the replicator with an EMPTY candidate list: a holder remembered from
-\* an earlier rule does not lower the shortage of a later rule - a phantom shortage that copies nothing.)
-Replicates(d) == \E k \in 1..Len(d.tasks) : Len(d.tasks[k].nodes) > 0
-Quiet(hs) == \A n \in hs : LET d == Decide27(n, hs, {}, {}) IN ~Replicates(d) /\ d.del = "none"
-NoTasks(hs) == \A n \in hs : ~Replicates(Decide27(n, hs, {}, {}))
-E\* a check "replicates" when it hands the replicator a task with at least one candidate node. (With overlapping
-\* rules the code as found keeps calling the replicator with an EMPTY candidate list: a holder remembered from
-\* an earlier rule does not lower the shortage of a later rule - a phantom shortage that copies nothing.)
-Replicates(d) == \E k \in 1..Len(d.tasks) : Len(d.tasks[k].nodes) > 0
-Quiet(hs) == \A n \in hs : LET d == Decide27(n, hs, {}, {}) IN ~Replicates(d) /\ d.del = "none"
-NoTasks(hs) == \A n \in hs : ~Replicates(Decide27(n, hs, {}, {}))
- \* a check "replicates" when it hands the replicator a task with at least one candidate node. (With overlapping
-\* rules the code as found keeps calling the replicator with an EMPTY candidate list: a holder remembered from
-\* an earlier rule does not lower the shortage of a later rule - a phantom shortage that copies nothing.)
-Replicates(d) == \E k \in 1..Len(d.tasks) : Len(d.tasks[k].nodes) > 0
-Quiet(hs) == \A n \in hs : LET d == Decide27(n, hs, {}, {}) IN ~Replicates(d) /\ d.del = "none"
-NoTasks(hs) == \A n \in hs : ~Replicates(Decide27(n, hs, {}, {}))
-{\* a check "replicates" when it hands the replicator a task with at least one candidate node. (With overlapping
-\* rules the code as found keeps calling the replicator with an EMPTY candidate list: a holder remembered from
-\* an earlier rule does not lower the shortage of a later rule - a phantom shortage that copies nothing.)
-Replicates(d) == \E k \in 1..Len(d.tasks) : Len(d.tasks[k].nodes) > 0
-Quiet(hs) == \A n \in hs : LET d == Decide27(n, hs, {}, {}) IN ~Replicates(d) /\ d.del = "none"
-NoTasks(hs) == \A n \in hs : ~Replicates(Decide27(n, hs, {}, {}))
-}\* a check "replicates" when it hands the replicator a task with at least one candidate node. (With overlapping
-\* rules the code as found keeps calling the replicator with an EMPTY candidate list: a holder remembered from
-\* an earlier rule does not lower the shortage of a later rule - a phantom shortage that copies nothing.)
-Replicates(d) == \E k \in 1..Len(d.tasks) : Len(d.tasks[k].nodes) > 0
-Quiet(hs) == \A n \in hs : LET d == Decide27(n, hs, {}, {}) IN ~Replicates(d) /\ d.del = "none"
-NoTasks(hs) == \A n \in hs : ~Replicates(Decide27(n, hs, {}, {}))
-)\* a check "replicates" when it hands the replicator a task with at least one candidate node. (With overlapping
-\* rules the code as found keeps calling the replicator with an EMPTY candidate list: a holder remembered from
-\* an earlier rule does not lower the shortage of a later rule - a phantom shortage that copies nothing.)
-Replicates(d) == \E k \in 1..Len(d.tasks) : Len(d.tasks[k].nodes) > 0
-Quiet(hs) == \A n \in hs : LET d == Decide27(n, hs, {}, {}) IN ~Replicates(d) /\ d.del = "none"
-NoTasks(hs) == \A n \in hs : ~Replicates(Decide27(n, hs, {}, {}))
-
-\* a check "replicates" when it hands the replicator a task with at least one candidate node. (With overlapping
-\* rules the code as found keeps calling the replicator with an EMPTY candidate list: a holder remembered from
-\* an earlier rule does not lower the shortage of a later rule - a phantom shortage that copies nothing.)
-Replicates(d) == \E k \in 1..Len(d.tasks) : Len(d.tasks[k].nodes) > 0
-Quiet(hs) == \A n \in hs : LET d == Decide27(n, hs, {}, {}) IN ~Replicates(d) /\ d.del = "none"
-NoTasks(hs) == \A n \in hs : ~Replicates(Decide27(n, hs, {}, {}))
-
-\* a check "replicates" when it hands the replicator a task with at least one candidate node. (With overlapping
-\* rules the code as found keeps calling the replicator with an EMPTY candidate list: a holder remembered from
-\* an earlier rule does not lower the shortage of a later rule - a phantom shortage that copies nothing.)
-Replicates(d) == \E k \in 1..Len(d.tasks) : Len(d.tasks[k].nodes) > 0
-Quiet(hs) == \A n \in hs : LET d == Decide27(n, hs, {}, {}) IN ~Replicates(d) /\ d.del = "none"
-NoTasks(hs) == \A n \in hs : ~Replicates(Decide27(n, hs, {}, {}))
-\\* a check "replicates" when it hands the replicator a task with at least one candidate node. (With overlapping
-\* rules the code as found keeps calling the replicator with an EMPTY candidate list: a holder remembered from
-\* an earlier rule does not lower the shortage of a later rule - a phantom shortage that copies nothing.)
-Replicates(d) == \E k \in 1..Len(d.tasks) : Len(d.tasks[k].nodes) > 0
-Quiet(hs) == \A n \in hs : LET d == Decide27(n, hs, {}, {}) IN ~Replicates(d) /\ d.del = "none"
-NoTasks(hs) == \A n \in hs : ~Replicates(Decide27(n, hs, {}, {}))
-*\* a check "replicates" when it hands the replicator a task with at least one candidate node. (With overlapping
-\* rules the code as found keeps calling the replicator with an EMPTY candidate list: a holder remembered from
-\* an earlier rule does not lower the shortage of a later rule - a phantom shortage that copies nothing.)
-Replicates(d) == \E k \in 1..Len(d.tasks) : Len(d.tasks[k].nodes) > 0
-Quiet(hs) == \A n \in hs : LET d == Decide27(n, hs, {}, {}) IN ~Replicates(d) /\ d.del = "none"
-NoTasks(hs) == \A n \in hs : ~Replicates(Decide27(n, hs, {}, {}))
- \* a check "replicates" when it hands the replicator a task with at least one candidate node. (With overlapping
-\* rules the code as found keeps calling the replicator with an EMPTY candidate list: a holder remembered from
-\* an earlier rule does not lower the shortage of a later rule - a phantom shortage that copies nothing.)
-Replicates(d) == \E k \in 1..Len(d.tasks) : Len(d.tasks[k].nodes) > 0
-Quiet(hs) == \A n \in hs : LET d == Decide27(n, hs, {}, {}) IN ~Replicates(d) /\ d.del = "none"
-NoTasks(hs) == \A n \in hs : ~Replicates(Decide27(n, hs, {}, {}))
-o\* a check "replicates" when it hands the replicator a task with at least one candidate node. (With overlapping
-\* rules the code as found keeps calling the replicator with an EMPTY candidate list: a holder remembered from
-\* an earlier rule does not lower the shortage of a later rule - a phantom shortage that copies nothing.)
-Replicates(d) == \E k \in 1..Len(d.tasks) : Len(d.tasks[k].nodes) > 0
-Quiet(hs) == \A n \in hs : LET d == Decide27(n, hs, {}, {}) IN ~Replicates(d) /\ d.del = "none"
-NoTasks(hs) == \A n \in hs : ~Replicates(Decide27(n, hs, {}, {}))
-n\* a check "replicates" when it hands the replicator a task with at least one candidate node. (With overlapping
-\* rules the code as found keeps calling the replicator with an EMPTY candidate list: a holder remembered from
-\* an earlier rule does not lower the shortage of a later rule - a phantom shortage that copies nothing.)
-Replicates(d) == \E k \in 1..Len(d.tasks) : Len(d.tasks[k].nodes) > 0
-Quiet(hs) == \A n \in hs : LET d == Decide27(n, hs, {}, {}) IN ~Replicates(d) /\ d.del = "none"
-NoTasks(hs) == \A n \in hs : ~Replicates(Decide27(n, hs, {}, {}))
-e\* a check "replicates" when it hands the replicator a task with at least one candidate node. (With overlapping
-\* rules the code as found keeps calling the replicator with an EMPTY candidate list: a holder remembered from
-\* an earlier rule does not lower the shortage of a later rule - a phantom shortage that copies nothing.)
-Replicates(d) == \E k \in 1..Len(d.tasks) : Len(d.tasks[k].nodes) > 0
-Quiet(hs) == \A n \in hs : LET d == Decide27(n, hs, {}, {}) IN ~Replicates(d) /\ d.del = "none"
-NoTasks(hs) == \A n \in hs : ~Replicates(Decide27(n, hs, {}, {}))
- \* a check "replicates" when it hands the replicator a task with at least one candidate node. (With overlapping
-\* rules the code as found keeps calling the replicator with an EMPTY candidate list: a holder remembered from
-\* an earlier rule does not lower the shortage of a later rule - a phantom shortage that copies nothing.)
-Replicates(d) == \E k \in 1..Len(d.tasks) : Len(d.tasks[k].nodes) > 0
-Quiet(hs) == \A n \in hs : LET d == Decide27(n, hs, {}, {}) IN ~Replicates(d) /\ d.del = "none"
-NoTasks(hs) == \A n \in hs : ~Replicates(Decide27(n, hs, {}, {}))
-p\* a check "replicates" when it hands the replicator a task with at least one candidate node. (With overlapping
-\* rules the code as found keeps calling the replicator with an EMPTY candidate list: a holder remembered from
-\* an earlier rule does not lower the shortage of a later rule - a phantom shortage that copies nothing.)
-Replicates(d) == \E k \in 1..Len(d.tasks) : Len(d.tasks[k].nodes) > 0
-Quiet(hs) == \A n \in hs : LET d == Decide27(n, hs, {}, {}) IN ~Replicates(d) /\ d.del = "none"
-NoTasks(hs) == \A n \in hs : ~Replicates(Decide27(n, hs, {}, {}))
-o\* a check "replicates" when it hands the replicator a task with at least one candidate node. (With overlapping
-\* rules the code as found keeps calling the replicator with an EMPTY candidate list: a holder remembered from
-\* an earlier rule does not lower the shortage of a later rule - a phantom shortage that copies nothing.)
-Replicates(d) == \E k \in 1..Len(d.tasks) : Len(d.tasks[k].nodes) > 0
-Quiet(hs) == \A n \in hs : LET d == Decide27(n, hs, {}, {}) IN ~Replicates(d) /\ d.del = "none"
-NoTasks(hs) == \A n \in hs : ~Replicates(Decide27(n, hs, {}, {}))
-l\* a check "replicates" when it hands the replicator a task with at least one candidate node. (With overlapping
-\* rules the code as found keeps calling the replicator with an EMPTY candidate list: a holder remembered from
-\* an earlier rule does not lower the shortage of a later rule - a phantom shortage that copies nothing.)
-Replicates(d) == \E k \in 1..Len(d.tasks) : Len(d.tasks[k].nodes) > 0
-Quiet(hs) == \A n \in hs : LET d == Decide27(n, hs, {}, {}) IN ~Replicates(d) /\ d.del = "none"
-NoTasks(hs) == \A n \in hs : ~Replicates(Decide27(n, hs, {}, {}))
-i\* a check "replicates" when it hands the replicator a task with at least one candidate node. (With overlapping
-\* rules the code as found keeps calling the replicator with an EMPTY candidate list: a holder remembered from
-\* an earlier rule does not lower the shortage of a later rule - a phantom shortage that copies nothing.)
-Replicates(d) == \E k \in 1..Len(d.tasks) : Len(d.tasks[k].nodes) > 0
-Quiet(hs) == \A n \in hs : LET d == Decide27(n, hs, {}, {}) IN ~Replicates(d) /\ d.del = "none"
-NoTasks(hs) == \A n \in hs : ~Replicates(Decide27(n, hs, {}, {}))
-c\* a check "replicates" when it hands the replicator a task with at least one candidate node. (With overlapping
-\* rules the code as found keeps calling the replicator with an EMPTY candidate list: a holder remembered from
-\* an earlier rule does not lower the shortage of a later rule - a phantom shortage that copies nothing.)
-Replicates(d) == \E k \in 1..Len(d.tasks) : Len(d.tasks[k].nodes) > 0
-Quiet(hs) == \A n \in hs : LET d == Decide27(n, hs, {}, {}) IN ~Replicates(d) /\ d.del = "none"
-NoTasks(hs) == \A n \in hs : ~Replicates(Decide27(n, hs, {}, {}))
-y\* a check "replicates" when it hands the replicator a task with at least one candidate node. (With overlapping
-\* rules the code as found keeps calling the replicator with an EMPTY candidate list: a holder remembered from
-\* an earlier rule does not lower the shortage of a later rule - a phantom shortage that copies nothing.)
-Replicates(d) == \E k \in 1..Len(d.tasks) : Len(d.tasks[k].nodes) > 0
-Quiet(hs) == \A n \in hs : LET d == Decide27(n, hs, {}, {}) IN ~Replicates(d) /\ d.del = "none"
-NoTasks(hs) == \A n \in hs : ~Replicates(Decide27(n, hs, {}, {}))
- \* a check "replicates" when it hands the replicator a task with at least one candidate node. (With overlapping
-\* rules the code as found keeps calling the replicator with an EMPTY candidate list: a holder remembered from
-\* an earlier rule does not lower the shortage of a later rule - a phantom shortage that copies nothing.)
-Replicates(d) == \E k \in 1..Len(d.tasks) : Len(d.tasks[k].nodes) > 0
-Quiet(hs) == \A n \in hs : LET d == Decide27(n, hs, {}, {}) IN ~Replicates(d) /\ d.del = "none"
-NoTasks(hs) == \A n \in hs : ~Replicates(Decide27(n, hs, {}, {}))
-c\* a check "replicates" when it hands the replicator a task with at least one candidate node. (With overlapping
-\* rules the code as found keeps calling the replicator with an EMPTY candidate list: a holder remembered from
-\* an earlier rule does not lower the shortage of a later rule - a phantom shortage that copies nothing.)
-Replicates(d) == \E k \in 1..Len(d.tasks) : Len(d.tasks[k].nodes) > 0
-Quiet(hs) == \A n \in hs : LET d == Decide27(n, hs, {}, {}) IN ~Replicates(d) /\ d.del = "none"
-NoTasks(hs) == \A n \in hs : ~Replicates(Decide27(n, hs, {}, {}))
-h\* a check "replicates" when it hands the replicator a task with at least one candidate node. (With overlapping
-\* rules the code as found keeps calling the replicator with an EMPTY candidate list: a holder remembered from
-\* an earlier rule does not lower the shortage of a later rule - a phantom shortage that copies nothing.)
-Replicates(d) == \E k \in 1..Len(d.tasks) : Len(d.tasks[k].nodes) > 0
-Quiet(hs) == \A n \in hs : LET d == Decide27(n, hs, {}, {}) IN ~Replicates(d) /\ d.del = "none"
-NoTasks(hs) == \A n \in hs : ~Replicates(Decide27(n, hs, {}, {}))
-e\* a check "replicates" when it hands the replicator a task with at least one candidate node. (With overlapping
-\* rules the code as found keeps calling the replicator with an EMPTY candidate list: a holder remembered from
-\* an earlier rule does not lower the shortage of a later rule - a phantom shortage that copies nothing.)
-Replicates(d) == \E k \in 1..Len(d.tasks) : Len(d.tasks[k].nodes) > 0
-Quiet(hs) == \A n \in hs : LET d == Decide27(n, hs, {}, {}) IN ~Replicates(d) /\ d.del = "none"
-NoTasks(hs) == \A n \in hs : ~Replicates(Decide27(n, hs, {}, {}))
-c\* a check "replicates" when it hands the replicator a task with at least one candidate node. (With overlapping
-\* rules the code as found keeps calling the replicator with an EMPTY candidate list: a holder remembered from
-\* an earlier rule does not lower the shortage of a later rule - a phantom shortage that copies nothing.)
-Replicates(d) == \E k \in 1..Len(d.tasks) : Len(d.tasks[k].nodes) > 0
-Quiet(hs) == \A n \in hs : LET d == Decide27(n, hs, {}, {}) IN ~Replicates(d) /\ d.del = "none"
-NoTasks(hs) == \A n \in hs : ~Replicates(Decide27(n, hs, {}, {}))
-k\* a check "replicates" when it hands the replicator a task with at least one candidate node. (With overlapping
-\* rules the code as found keeps calling the replicator with an EMPTY candidate list: a holder remembered from
-\* an earlier rule does not lower the shortage of a later rule - a phantom shortage that copies nothing.)
-Replicates(d) == \E k \in 1..Len(d.tasks) : Len(d.tasks[k].nodes) > 0
-Quiet(hs) == \A n \in hs : LET d == Decide27(n, hs, {}, {}) IN ~Replicates(d) /\ d.del = "none"
-NoTasks(hs) == \A n \in hs : ~Replicates(Decide27(n, hs, {}, {}))
- \* a check "replicates" when it hands the replicator a task with at least one candidate node. (With overlapping
-\* rules the code as found keeps calling the replicator with an EMPTY candidate list: a holder remembered from
-\* an earlier rule does not lower the shortage of a later rule - a phantom shortage that copies nothing.)
-Replicates(d) == \E k \in 1..Len(d.tasks) : Len(d.tasks[k].nodes) > 0
-Quiet(hs) == \A n \in hs : LET d == Decide27(n, hs, {}, {}) IN ~Replicates(d) /\ d.del = "none"
-NoTasks(hs) == \A n \in hs : ~Replicates(Decide27(n, hs, {}, {}))
-b\* a check "replicates" when it hands the replicator a task with at least one candidate node. (With overlapping
-\* rules the code as found keeps calling the replicator with an EMPTY candidate list: a holder remembered from
-\* an earlier rule does not lower the shortage of a later rule - a phantom shortage that copies nothing.)
-Replicates(d) == \E k \in 1..Len(d.tasks) : Len(d.tasks[k].nodes) > 0
-Quiet(hs) == \A n \in hs : LET d == Decide27(n, hs, {}, {}) IN ~Replicates(d) /\ d.del = "none"
-NoTasks(hs) == \A n \in hs : ~Replicates(Decide27(n, hs, {}, {}))
-y\* a check "replicates" when it hands the replicator a task with at least one candidate node. (With overlapping
-\* rules the code as found keeps calling the replicator with an EMPTY candidate list: a holder remembered from
-\* an earlier rule does not lower the shortage of a later rule - a phantom shortage that copies nothing.)
-Replicates(d) == \E k \in 1..Len(d.tasks) : Len(d.tasks[k].nodes) > 0
-Quiet(hs) == \A n \in hs : LET d == Decide27(n, hs, {}, {}) IN ~Replicates(d) /\ d.del = "none"
-NoTasks(hs) == \A n \in hs : ~Replicates(Decide27(n, hs, {}, {}))
- \* a check "replicates" when it hands the replicator a task with at least one candidate node. (With overlapping
-\* rules the code as found keeps calling the replicator with an EMPTY candidate list: a holder remembered from
-\* an earlier rule does not lower the shortage of a later rule - a phantom shortage that copies nothing.)
-Replicates(d) == \E k \in 1..Len(d.tasks) : Len(d.tasks[k].nodes) > 0
-Quiet(hs) == \A n \in hs : LET d == Decide27(n, hs, {}, {}) IN ~Replicates(d) /\ d.del = "none"
-NoTasks(hs) == \A n \in hs : ~Replicates(Decide27(n, hs, {}, {}))
-h\* a check "replicates" when it hands the replicator a task with at least one candidate node. (With overlapping
-\* rules the code as found keeps calling the replicator with an EMPTY candidate list: a holder remembered from
-\* an earlier rule does not lower the shortage of a later rule - a phantom shortage that copies nothing.)
-Replicates(d) == \E k \in 1..Len(d.tasks) : Len(d.tasks[k].nodes) > 0
-Quiet(hs) == \A n \in hs : LET d == Decide27(n, hs, {}, {}) IN ~Replicates(d) /\ d.del = "none"
-NoTasks(hs) == \A n \in hs : ~Replicates(Decide27(n, hs, {}, {}))
-o\* a check "replicates" when it hands the replicator a task with at least one candidate node. (With overlapping
-\* rules the code as found keeps calling the replicator with an EMPTY candidate list: a holder remembered from
-\* an earlier rule does not lower the shortage of a later rule - a phantom shortage that copies nothing.)
-Replicates(d) == \E k \in 1..Len(d.tasks) : Len(d.tasks[k].nodes) > 0
-Quiet(hs) == \A n \in hs : LET d == Decide27(n, hs, {}, {}) IN ~Replicates(d) /\ d.del = "none"
-NoTasks(hs) == \A n \in hs : ~Replicates(Decide27(n, hs, {}, {}))
-l\* a check "replicates" when it hands the replicator a task with at least one candidate node. (With overlapping
-\* rules the code as found keeps calling the replicator with an EMPTY candidate list: a holder remembered from
-\* an earlier rule does not lower the shortage of a later rule - a phantom shortage that copies nothing.)
-Replicates(d) == \E k \in 1..Len(d.tasks) : Len(d.tasks[k].nodes) > 0
-Quiet(hs) == \A n \in hs : LET d == Decide27(n, hs, {}, {}) IN ~Replicates(d) /\ d.del = "none"
-NoTasks(hs) == \A n \in hs : ~Replicates(Decide27(n, hs, {}, {}))
-d\* a check "replicates" when it hands the replicator a task with at least one candidate node. (With overlapping
-\* rules the code as found keeps calling the replicator with an EMPTY candidate list: a holder remembered from
-\* an earlier rule does not lower the shortage of a later rule - a phantom shortage that copies nothing.)
-Replicates(d) == \E k \in 1..Len(d.tasks) : Len(d.tasks[k].nodes) > 0
-Quiet(hs) == \A n \in hs : LET d == Decide27(n, hs, {}, {}) IN ~Replicates(d) /\ d.del = "none"
-NoTasks(hs) == \A n \in hs : ~Replicates(Decide27(n, hs, {}, {}))
-e\* a check "replicates" when it hands the replicator a task with at least one candidate node. (With overlapping
-\* rules the code as found keeps calling the replicator with an EMPTY candidate list: a holder remembered from
-\* an earlier rule does not lower the shortage of a later rule - a phantom shortage that copies nothing.)
-Replicates(d) == \E k \in 1..Len(d.tasks) : Len(d.tasks[k].nodes) > 0
-Quiet(hs) == \A n \in hs : LET d == Decide27(n, hs, {}, {}) IN ~Replicates(d) /\ d.del = "none"
-NoTasks(hs) == \A n \in hs : ~Replicates(Decide27(n, hs, {}, {}))
-r\* a check "replicates" when it hands the replicator a task with at least one candidate node. (With overlapping
-\* rules the code as found keeps calling the replicator with an EMPTY candidate list: a holder remembered from
-\* an earlier rule does not lower the shortage of a later rule - a phantom shortage that copies nothing.)
-Replicates(d) == \E k \in 1..Len(d.tasks) : Len(d.tasks[k].nodes) > 0
-Quiet(hs) == \A n \in hs : LET d == Decide27(n, hs, {}, {}) IN ~Replicates(d) /\ d.del = "none"
-NoTasks(hs) == \A n \in hs : ~Replicates(Decide27(n, hs, {}, {}))
- \* a check "replicates" when it hands the replicator a task with at least one candidate node. (With overlapping
-\* rules the code as found keeps calling the replicator with an EMPTY candidate list: a holder remembered from
-\* an earlier rule does not lower the shortage of a later rule - a phantom shortage that copies nothing.)
-Replicates(d) == \E k \in 1..Len(d.tasks) : Len(d.tasks[k].nodes) > 0
-Quiet(hs) == \A n \in hs : LET d == Decide27(n, hs, {}, {}) IN ~Replicates(d) /\ d.del = "none"
-NoTasks(hs) == \A n \in hs : ~Replicates(Decide27(n, hs, {}, {}))
-n\* a check "replicates" when it hands the replicator a task with at least one candidate node. (With overlapping
-\* rules the code as found keeps calling the replicator with an EMPTY candidate list: a holder remembered from
-\* an earlier rule does not lower the shortage of a later rule - a phantom shortage that copies nothing.)
-Replicates(d) == \E k \in 1..Len(d.tasks) : Len(d.tasks[k].nodes) > 0
-Quiet(hs) == \A n \in hs : LET d == Decide27(n, hs, {}, {}) IN ~Replicates(d) /\ d.del = "none"
-NoTasks(hs) == \A n \in hs : ~Replicates(Decide27(n, hs, {}, {}))
- \* a check "replicates" when it hands the replicator a task with at least one candidate node. (With overlapping
-\* rules the code as found keeps calling the replicator with an EMPTY candidate list: a holder remembered from
-\* an earlier rule does not lower the shortage of a later rule - a phantom shortage that copies nothing.)
-Replicates(d) == \E k \in 1..Len(d.tasks) : Len(d.tasks[k].nodes) > 0
-Quiet(hs) == \A n \in hs : LET d == Decide27(n, hs, {}, {}) IN ~Replicates(d) /\ d.del = "none"
-NoTasks(hs) == \A n \in hs : ~Replicates(Decide27(n, hs, {}, {}))
-w\* a check "replicates" when it hands the replicator a task with at least one candidate node. (With overlapping
-\* rules the code as found keeps calling the replicator with an EMPTY candidate list: a holder remembered from
-\* an earlier rule does not lower the shortage of a later rule - a phantom shortage that copies nothing.)
-Replicates(d) == \E k \in 1..Len(d.tasks) : Len(d.tasks[k].nodes) > 0
-Quiet(hs) == \A n \in hs : LET d == Decide27(n, hs, {}, {}) IN ~Replicates(d) /\ d.del = "none"
-NoTasks(hs) == \A n \in hs : ~Replicates(Decide27(n, hs, {}, {}))
-h\* a check "replicates" when it hands the replicator a task with at least one candidate node. (With overlapping
-\* rules the code as found keeps calling the replicator with an EMPTY candidate list: a holder remembered from
-\* an earlier rule does not lower the shortage of a later rule - a phantom shortage that copies nothing.)
-Replicates(d) == \E k \in 1..Len(d.tasks) : Len(d.tasks[k].nodes) > 0
-Quiet(hs) == \A n \in hs : LET d == Decide27(n, hs, {}, {}) IN ~Replicates(d) /\ d.del = "none"
-NoTasks(hs) == \A n \in hs : ~Replicates(Decide27(n, hs, {}, {}))
-i\* a check "replicates" when it hands the replicator a task with at least one candidate node. (With overlapping
-\* rules the code as found keeps calling the replicator with an EMPTY candidate list: a holder remembered from
-\* an earlier rule does not lower the shortage of a later rule - a phantom shortage that copies nothing.)
-Replicates(d) == \E k \in 1..Len(d.tasks) : Len(d.tasks[k].nodes) > 0
-Quiet(hs) == \A n \in hs : LET d == Decide27(n, hs, {}, {}) IN ~Replicates(d) /\ d.del = "none"
-NoTasks(hs) == \A n \in hs : ~Replicates(Decide27(n, hs, {}, {}))
-l\* a check "replicates" when it hands the replicator a task with at least one candidate node. (With overlapping
-\* rules the code as found keeps calling the replicator with an EMPTY candidate list: a holder remembered from
-\* an earlier rule does not lower the shortage of a later rule - a phantom shortage that copies nothing.)
-Replicates(d) == \E k \in 1..Len(d.tasks) : Len(d.tasks[k].nodes) > 0
-Quiet(hs) == \A n \in hs : LET d == Decide27(n, hs, {}, {}) IN ~Replicates(d) /\ d.del = "none"
-NoTasks(hs) == \A n \in hs : ~Replicates(Decide27(n, hs, {}, {}))
-e\* a check "replicates" when it hands the replicator a task with at least one candidate node. (With overlapping
-\* rules the code as found keeps calling the replicator with an EMPTY candidate list: a holder remembered from
-\* an earlier rule does not lower the shortage of a later rule - a phantom shortage that copies nothing.)
-Replicates(d) == \E k \in 1..Len(d.tasks) : Len(d.tasks[k].nodes) > 0
-Quiet(hs) == \A n \in hs : LET d == Decide27(n, hs, {}, {}) IN ~Replicates(d) /\ d.del = "none"
-NoTasks(hs) == \A n \in hs : ~Replicates(Decide27(n, hs, {}, {}))
- \* a check "replicates" when it hands the replicator a task with at least one candidate node. (With overlapping
-\* rules the code as found keeps calling the replicator with an EMPTY candidate list: a holder remembered from
-\* an earlier rule does not lower the shortage of a later rule - a phantom shortage that copies nothing.)
-Replicates(d) == \E k \in 1..Len(d.tasks) : Len(d.tasks[k].nodes) > 0
-Quiet(hs) == \A n \in hs : LET d == Decide27(n, hs, {}, {}) IN ~Replicates(d) /\ d.del = "none"
-NoTasks(hs) == \A n \in hs : ~Replicates(Decide27(n, hs, {}, {}))
-t\* a check "replicates" when it hands the replicator a task with at least one candidate node. (With overlapping
-\* rules the code as found keeps calling the replicator with an EMPTY candidate list: a holder remembered from
-\* an earlier rule does not lower the shortage of a later rule - a phantom shortage that copies nothing.)
-Replicates(d) == \E k \in 1..Len(d.tasks) : Len(d.tasks[k].nodes) > 0
-Quiet(hs) == \A n \in hs : LET d == Decide27(n, hs, {}, {}) IN ~Replicates(d) /\ d.del = "none"
-NoTasks(hs) == \A n \in hs : ~Replicates(Decide27(n, hs, {}, {}))
-h\* a check "replicates" when it hands the replicator a task with at least one candidate node. (With overlapping
-\* rules the code as found keeps calling the replicator with an EMPTY candidate list: a holder remembered from
-\* an earlier rule does not lower the shortage of a later rule - a phantom shortage that copies nothing.)
-Replicates(d) == \E k \in 1..Len(d.tasks) : Len(d.tasks[k].nodes) > 0
-Quiet(hs) == \A n \in hs : LET d == Decide27(n, hs, {}, {}) IN ~Replicates(d) /\ d.del = "none"
-NoTasks(hs) == \A n \in hs : ~Replicates(Decide27(n, hs, {}, {}))
-e\* a check "replicates" when it hands the replicator a task with at least one candidate node. (With overlapping
-\* rules the code as found keeps calling the replicator with an EMPTY candidate list: a holder remembered from
-\* an earlier rule does not lower the shortage of a later rule - a phantom shortage that copies nothing.)
-Replicates(d) == \E k \in 1..Len(d.tasks) : Len(d.tasks[k].nodes) > 0
-Quiet(hs) == \A n \in hs : LET d == Decide27(n, hs, {}, {}) IN ~Replicates(d) /\ d.del = "none"
-NoTasks(hs) == \A n \in hs : ~Replicates(Decide27(n, hs, {}, {}))
- \* a check "replicates" when it hands the replicator a task with at least one candidate node. (With overlapping
-\* rules the code as found keeps calling the replicator with an EMPTY candidate list: a holder remembered from
-\* an earlier rule does not lower the shortage of a later rule - a phantom shortage that copies nothing.)
-Replicates(d) == \E k \in 1..Len(d.tasks) : Len(d.tasks[k].nodes) > 0
-Quiet(hs) == \A n \in hs : LET d == Decide27(n, hs, {}, {}) IN ~Replicates(d) /\ d.del = "none"
-NoTasks(hs) == \A n \in hs : ~Replicates(Decide27(n, hs, {}, {}))
-n\* a check "replicates" when it hands the replicator a task with at least one candidate node. (With overlapping
-\* rules the code as found keeps calling the replicator with an EMPTY candidate list: a holder remembered from
-\* an earlier rule does not lower the shortage of a later rule - a phantom shortage that copies nothing.)
-Replicates(d) == \E k \in 1..Len(d.tasks) : Len(d.tasks[k].nodes) > 0
-Quiet(hs) == \A n \in hs : LET d == Decide27(n, hs, {}, {}) IN ~Replicates(d) /\ d.del = "none"
-NoTasks(hs) == \A n \in hs : ~Replicates(Decide27(n, hs, {}, {}))
-o\* a check "replicates" when it hands the replicator a task with at least one candidate node. (With overlapping
-\* rules the code as found keeps calling the replicator with an EMPTY candidate list: a holder remembered from
-\* an earlier rule does not lower the shortage of a later rule - a phantom shortage that copies nothing.)
-Replicates(d) == \E k \in 1..Len(d.tasks) : Len(d.tasks[k].nodes) > 0
-Quiet(hs) == \A n \in hs : LET d == Decide27(n, hs, {}, {}) IN ~Replicates(d) /\ d.del = "none"
-NoTasks(hs) == \A n \in hs : ~Replicates(Decide27(n, hs, {}, {}))
-d\* a check "replicates" when it hands the replicator a task with at least one candidate node. (With overlapping
-\* rules the code as found keeps calling the replicator with an EMPTY candidate list: a holder remembered from
-\* an earlier rule does not lower the shortage of a later rule - a phantom shortage that copies nothing.)
-Replicates(d) == \E k \in 1..Len(d.tasks) : Len(d.tasks[k].nodes) > 0
-Quiet(hs) == \A n \in hs : LET d == Decide27(n, hs, {}, {}) IN ~Replicates(d) /\ d.del = "none"
-NoTasks(hs) == \A n \in hs : ~Replicates(Decide27(n, hs, {}, {}))
-e\* a check "replicates" when it hands the replicator a task with at least one candidate node. (With overlapping
-\* rules the code as found keeps calling the replicator with an EMPTY candidate list: a holder remembered from
-\* an earlier rule does not lower the shortage of a later rule - a phantom shortage that copies nothing.)
-Replicates(d) == \E k \in 1..Len(d.tasks) : Len(d.tasks[k].nodes) > 0
-Quiet(hs) == \A n \in hs : LET d == Decide27(n, hs, {}, {}) IN ~Replicates(d) /\ d.del = "none"
-NoTasks(hs) == \A n \in hs : ~Replicates(Decide27(n, hs, {}, {}))
-s\* a check "replicates" when it hands the replicator a task with at least one candidate node. (With overlapping
-\* rules the code as found keeps calling the replicator with an EMPTY candidate list: a holder remembered from
-\* an earlier rule does not lower the shortage of a later rule - a phantom shortage that copies nothing.)
-Replicates(d) == \E k \in 1..Len(d.tasks) : Len(d.tasks[k].nodes) > 0
-Quiet(hs) == \A n \in hs : LET d == Decide27(n, hs, {}, {}) IN ~Replicates(d) /\ d.del = "none"
-NoTasks(hs) == \A n \in hs : ~Replicates(Decide27(n, hs, {}, {}))
- \* a check "replicates" when it hands the replicator a task with at least one candidate node. (With overlapping
-\* rules the code as found keeps calling the replicator with an EMPTY candidate list: a holder remembered from
-\* an earlier rule does not lower the shortage of a later rule - a phantom shortage that copies nothing.)
-Replicates(d) == \E k \in 1..Len(d.tasks) : Len(d.tasks[k].nodes) > 0
-Quiet(hs) == \A n \in hs : LET d == Decide27(n, hs, {}, {}) IN ~Replicates(d) /\ d.del = "none"
-NoTasks(hs) == \A n \in hs : ~Replicates(Decide27(n, hs, {}, {}))
-i\* a check "replicates" when it hands the replicator a task with at least one candidate node. (With overlapping
-\* rules the code as found keeps calling the replicator with an EMPTY candidate list: a holder remembered from
-\* an earlier rule does not lower the shortage of a later rule - a phantom shortage that copies nothing.)
-Replicates(d) == \E k \in 1..Len(d.tasks) : Len(d.tasks[k].nodes) > 0
-Quiet(hs) == \A n \in hs : LET d == Decide27(n, hs, {}, {}) IN ~Replicates(d) /\ d.del = "none"
-NoTasks(hs) == \A n \in hs : ~Replicates(Decide27(n, hs, {}, {}))
-n\* a check "replicates" when it hands the replicator a task with at least one candidate node. (With overlapping
-\* rules the code as found keeps calling the replicator with an EMPTY candidate list: a holder remembered from
-\* an earlier rule does not lower the shortage of a later rule - a phantom shortage that copies nothing.)
-Replicates(d) == \E k \in 1..Len(d.tasks) : Len(d.tasks[k].nodes) > 0
-Quiet(hs) == \A n \in hs : LET d == Decide27(n, hs, {}, {}) IN ~Replicates(d) /\ d.del = "none"
-NoTasks(hs) == \A n \in hs : ~Replicates(Decide27(n, hs, {}, {}))
- \* a check "replicates" when it hands the replicator a task with at least one candidate node. (With overlapping
-\* rules the code as found keeps calling the replicator with an EMPTY candidate list: a holder remembered from
-\* an earlier rule does not lower the shortage of a later rule - a phantom shortage that copies nothing.)
-Replicates(d) == \E k \in 1..Len(d.tasks) : Len(d.tasks[k].nodes) > 0
-Quiet(hs) == \A n \in hs : LET d == Decide27(n, hs, {}, {}) IN ~Replicates(d) /\ d.del = "none"
-NoTasks(hs) == \A n \in hs : ~Replicates(Decide27(n, hs, {}, {}))
-d\* a check "replicates" when it hands the replicator a task with at least one candidate node. (With overlapping
-\* rules the code as found keeps calling the replicator with an EMPTY candidate list: a holder remembered from
-\* an earlier rule does not lower the shortage of a later rule - a phantom shortage that copies nothing.)
-Replicates(d) == \E k \in 1..Len(d.tasks) : Len(d.tasks[k].nodes) > 0
-Quiet(hs) == \A n \in hs : LET d == Decide27(n, hs, {}, {}) IN ~Replicates(d) /\ d.del = "none"
-NoTasks(hs) == \A n \in hs : ~Replicates(Decide27(n, hs, {}, {}))
-o\* a check "replicates" when it hands the replicator a task with at least one candidate node. (With overlapping
-\* rules the code as found keeps calling the replicator with an EMPTY candidate list: a holder remembered from
-\* an earlier rule does not lower the shortage of a later rule - a phantom shortage that copies nothing.)
-Replicates(d) == \E k \in 1..Len(d.tasks) : Len(d.tasks[k].nodes) > 0
-Quiet(hs) == \A n \in hs : LET d == Decide27(n, hs, {}, {}) IN ~Replicates(d) /\ d.del = "none"
-NoTasks(hs) == \A n \in hs : ~Replicates(Decide27(n, hs, {}, {}))
-w\* a check "replicates" when it hands the replicator a task with at least one candidate node. (With overlapping
-\* rules the code as found keeps calling the replicator with an EMPTY candidate list: a holder remembered from
-\* an earlier rule does not lower the shortage of a later rule - a phantom shortage that copies nothing.)
-Replicates(d) == \E k \in 1..Len(d.tasks) : Len(d.tasks[k].nodes) > 0
-Quiet(hs) == \A n \in hs : LET d == Decide27(n, hs, {}, {}) IN ~Replicates(d) /\ d.del = "none"
-NoTasks(hs) == \A n \in hs : ~Replicates(Decide27(n, hs, {}, {}))
-n\* a check "replicates" when it hands the replicator a task with at least one candidate node. (With overlapping
-\* rules the code as found keeps calling the replicator with an EMPTY candidate list: a holder remembered from
-\* an earlier rule does not lower the shortage of a later rule - a phantom shortage that copies nothing.)
-Replicates(d) == \E k \in 1..Len(d.tasks) : Len(d.tasks[k].nodes) > 0
-Quiet(hs) == \A n \in hs : LET d == Decide27(n, hs, {}, {}) IN ~Replicates(d) /\ d.del = "none"
-NoTasks(hs) == \A n \in hs : ~Replicates(Decide27(n, hs, {}, {}))
- \* a check "replicates" when it hands the replicator a task with at least one candidate node. (With overlapping
-\* rules the code as found keeps calling the replicator with an EMPTY candidate list: a holder remembered from
-\* an earlier rule does not lower the shortage of a later rule - a phantom shortage that copies nothing.)
-Replicates(d) == \E k \in 1..Len(d.tasks) : Len(d.tasks[k].nodes) > 0
-Quiet(hs) == \A n \in hs : LET d == Decide27(n, hs, {}, {}) IN ~Replicates(d) /\ d.del = "none"
-NoTasks(hs) == \A n \in hs : ~Replicates(Decide27(n, hs, {}, {}))
-a\* a check "replicates" when it hands the replicator a task with at least one candidate node. (With overlapping
-\* rules the code as found keeps calling the replicator with an EMPTY candidate list: a holder remembered from
-\* an earlier rule does not lower the shortage of a later rule - a phantom shortage that copies nothing.)
-Replicates(d) == \E k \in 1..Len(d.tasks) : Len(d.tasks[k].nodes) > 0
-Quiet(hs) == \A n \in hs : LET d == Decide27(n, hs, {}, {}) IN ~Replicates(d) /\ d.del = "none"
-NoTasks(hs) == \A n \in hs : ~Replicates(Decide27(n, hs, {}, {}))
-r\* a check "replicates" when it hands the replicator a task with at least one candidate node. (With overlapping
-\* rules the code as found keeps calling the replicator with an EMPTY candidate list: a holder remembered from
-\* an earlier rule does not lower the shortage of a later rule - a phantom shortage that copies nothing.)
-Replicates(d) == \E k \in 1..Len(d.tasks) : Len(d.tasks[k].nodes) > 0
-Quiet(hs) == \A n \in hs : LET d == Decide27(n, hs, {}, {}) IN ~Replicates(d) /\ d.del = "none"
-NoTasks(hs) == \A n \in hs : ~Replicates(Decide27(n, hs, {}, {}))
-e\* a check "replicates" when it hands the replicator a task with at least one candidate node. (With overlapping
-\* rules the code as found keeps calling the replicator with an EMPTY candidate list: a holder remembered from
-\* an earlier rule does not lower the shortage of a later rule - a phantom shortage that copies nothing.)
-Replicates(d) == \E k \in 1..Len(d.tasks) : Len(d.tasks[k].nodes) > 0
-Quiet(hs) == \A n \in hs : LET d == Decide27(n, hs, {}, {}) IN ~Replicates(d) /\ d.del = "none"
-NoTasks(hs) == \A n \in hs : ~Replicates(Decide27(n, hs, {}, {}))
- \* a check "replicates" when it hands the replicator a task with at least one candidate node. (With overlapping
-\* rules the code as found keeps calling the replicator with an EMPTY candidate list: a holder remembered from
-\* an earlier rule does not lower the shortage of a later rule - a phantom shortage that copies nothing.)
-Replicates(d) == \E k \in 1..Len(d.tasks) : Len(d.tasks[k].nodes) > 0
-Quiet(hs) == \A n \in hs : LET d == Decide27(n, hs, {}, {}) IN ~Replicates(d) /\ d.del = "none"
-NoTasks(hs) == \A n \in hs : ~Replicates(Decide27(n, hs, {}, {}))
-u\* a check "replicates" when it hands the replicator a task with at least one candidate node. (With overlapping
-\* rules the code as found keeps calling the replicator with an EMPTY candidate list: a holder remembered from
-\* an earlier rule does not lower the shortage of a later rule - a phantom shortage that copies nothing.)
-Replicates(d) == \E k \in 1..Len(d.tasks) : Len(d.tasks[k].nodes) > 0
-Quiet(hs) == \A n \in hs : LET d == Decide27(n, hs, {}, {}) IN ~Replicates(d) /\ d.del = "none"
-NoTasks(hs) == \A n \in hs : ~Replicates(Decide27(n, hs, {}, {}))
-n\* a check "replicates" when it hands the replicator a task with at least one candidate node. (With overlapping
-\* rules the code as found keeps calling the replicator with an EMPTY candidate list: a holder remembered from
-\* an earlier rule does not lower the shortage of a later rule - a phantom shortage that copies nothing.)
-Replicates(d) == \E k \in 1..Len(d.tasks) : Len(d.tasks[k].nodes) > 0
-Quiet(hs) == \A n \in hs : LET d == Decide27(n, hs, {}, {}) IN ~Replicates(d) /\ d.del = "none"
-NoTasks(hs) == \A n \in hs : ~Replicates(Decide27(n, hs, {}, {}))
-r\* a check "replicates" when it hands the replicator a task with at least one candidate node. (With overlapping
-\* rules the code as found keeps calling the replicator with an EMPTY candidate list: a holder remembered from
-\* an earlier rule does not lower the shortage of a later rule - a phantom shortage that copies nothing.)
-Replicates(d) == \E k \in 1..Len(d.tasks) : Len(d.tasks[k].nodes) > 0
-Quiet(hs) == \A n \in hs : LET d == Decide27(n, hs, {}, {}) IN ~Replicates(d) /\ d.del = "none"
-NoTasks(hs) == \A n \in hs : ~Replicates(Decide27(n, hs, {}, {}))
-e\* a check "replicates" when it hands the replicator a task with at least one candidate node. (With overlapping
-\* rules the code as found keeps calling the replicator with an EMPTY candidate list: a holder remembered from
-\* an earlier rule does not lower the shortage of a later rule - a phantom shortage that copies nothing.)
-Replicates(d) == \E k \in 1..Len(d.tasks) : Len(d.tasks[k].nodes) > 0
-Quiet(hs) == \A n \in hs : LET d == Decide27(n, hs, {}, {}) IN ~Replicates(d) /\ d.del = "none"
-NoTasks(hs) == \A n \in hs : ~Replicates(Decide27(n, hs, {}, {}))
-a\* a check "replicates" when it hands the replicator a task with at least one candidate node. (With overlapping
-\* rules the code as found keeps calling the replicator with an EMPTY candidate list: a holder remembered from
-\* an earlier rule does not lower the shortage of a later rule - a phantom shortage that copies nothing.)
-Replicates(d) == \E k \in 1..Len(d.tasks) : Len(d.tasks[k].nodes) > 0
-Quiet(hs) == \A n \in hs : LET d == Decide27(n, hs, {}, {}) IN ~Replicates(d) /\ d.del = "none"
-NoTasks(hs) == \A n \in hs : ~Replicates(Decide27(n, hs, {}, {}))
-c\* a check "replicates" when it hands the replicator a task with at least one candidate node. (With overlapping
-\* rules the code as found keeps calling the replicator with an EMPTY candidate list: a holder remembered from
-\* an earlier rule does not lower the shortage of a later rule - a phantom shortage that copies nothing.)
-Replicates(d) == \E k \in 1..Len(d.tasks) : Len(d.tasks[k].nodes) > 0
-Quiet(hs) == \A n \in hs : LET d == Decide27(n, hs, {}, {}) IN ~Replicates(d) /\ d.del = "none"
-NoTasks(hs) == \A n \in hs : ~Replicates(Decide27(n, hs, {}, {}))
-h\* a check "replicates" when it hands the replicator a task with at least one candidate node. (With overlapping
-\* rules the code as found keeps calling the replicator with an EMPTY candidate list: a holder remembered from
-\* an earlier rule does not lower the shortage of a later rule - a phantom shortage that copies nothing.)
-Replicates(d) == \E k \in 1..Len(d.tasks) : Len(d.tasks[k].nodes) > 0
-Quiet(hs) == \A n \in hs : LET d == Decide27(n, hs, {}, {}) IN ~Replicates(d) /\ d.del = "none"
-NoTasks(hs) == \A n \in hs : ~Replicates(Decide27(n, hs, {}, {}))
-a\* a check "replicates" when it hands the replicator a task with at least one candidate node. (With overlapping
-\* rules the code as found keeps calling the replicator with an EMPTY candidate list: a holder remembered from
-\* an earlier rule does not lower the shortage of a later rule - a phantom shortage that copies nothing.)
-Replicates(d) == \E k \in 1..Len(d.tasks) : Len(d.tasks[k].nodes) > 0
-Quiet(hs) == \A n \in hs : LET d == Decide27(n, hs, {}, {}) IN ~Replicates(d) /\ d.del = "none"
-NoTasks(hs) == \A n \in hs : ~Replicates(Decide27(n, hs, {}, {}))
-b\* a check "replicates" when it hands the replicator a task with at least one candidate node. (With overlapping
-\* rules the code as found keeps calling the replicator with an EMPTY candidate list: a holder remembered from
-\* an earlier rule does not lower the shortage of a later rule - a phantom shortage that copies nothing.)
-Replicates(d) == \E k \in 1..Len(d.tasks) : Len(d.tasks[k].nodes) > 0
-Quiet(hs) == \A n \in hs : LET d == Decide27(n, hs, {}, {}) IN ~Replicates(d) /\ d.del = "none"
-NoTasks(hs) == \A n \in hs : ~Replicates(Decide27(n, hs, {}, {}))
-l\* a check "replicates" when it hands the replicator a task with at least one candidate node. (With overlapping
-\* rules the code as found keeps calling the replicator with an EMPTY candidate list: a holder remembered from
-\* an earlier rule does not lower the shortage of a later rule - a phantom shortage that copies nothing.)
-Replicates(d) == \E k \in 1..Len(d.tasks) : Len(d.tasks[k].nodes) > 0
-Quiet(hs) == \A n \in hs : LET d == Decide27(n, hs, {}, {}) IN ~Replicates(d) /\ d.del = "none"
-NoTasks(hs) == \A n \in hs : ~Replicates(Decide27(n, hs, {}, {}))
-e\* a check "replicates" when it hands the replicator a task with at least one candidate node. (With overlapping
-\* rules the code as found keeps calling the replicator with an EMPTY candidate list: a holder remembered from
-\* an earlier rule does not lower the shortage of a later rule - a phantom shortage that copies nothing.)
-Replicates(d) == \E k \in 1..Len(d.tasks) : Len(d.tasks[k].nodes) > 0
-Quiet(hs) == \A n \in hs : LET d == Decide27(n, hs, {}, {}) IN ~Replicates(d) /\ d.del = "none"
-NoTasks(hs) == \A n \in hs : ~Replicates(Decide27(n, hs, {}, {}))
- \* a check "replicates" when it hands the replicator a task with at least one candidate node. (With overlapping
-\* rules the code as found keeps calling the replicator with an EMPTY candidate list: a holder remembered from
-\* an earlier rule does not lower the shortage of a later rule - a phantom shortage that copies nothing.)
-Replicates(d) == \E k \in 1..Len(d.tasks) : Len(d.tasks[k].nodes) > 0
-Quiet(hs) == \A n \in hs : LET d == Decide27(n, hs, {}, {}) IN ~Replicates(d) /\ d.del = "none"
-NoTasks(hs) == \A n \in hs : ~Replicates(Decide27(n, hs, {}, {}))
-a\* a check "replicates" when it hands the replicator a task with at least one candidate node. (With overlapping
-\* rules the code as found keeps calling the replicator with an EMPTY candidate list: a holder remembered from
-\* an earlier rule does not lower the shortage of a later rule - a phantom shortage that copies nothing.)
-Replicates(d) == \E k \in 1..Len(d.tasks) : Len(d.tasks[k].nodes) > 0
-Quiet(hs) == \A n \in hs : LET d == Decide27(n, hs, {}, {}) IN ~Replicates(d) /\ d.del = "none"
-NoTasks(hs) == \A n \in hs : ~Replicates(Decide27(n, hs, {}, {}))
-n\* a check "replicates" when it hands the replicator a task with at least one candidate node. (With overlapping
-\* rules the code as found keeps calling the replicator with an EMPTY candidate list: a holder remembered from
-\* an earlier rule does not lower the shortage of a later rule - a phantom shortage that copies nothing.)
-Replicates(d) == \E k \in 1..Len(d.tasks) : Len(d.tasks[k].nodes) > 0
-Quiet(hs) == \A n \in hs : LET d == Decide27(n, hs, {}, {}) IN ~Replicates(d) /\ d.del = "none"
-NoTasks(hs) == \A n \in hs : ~Replicates(Decide27(n, hs, {}, {}))
-d\* a check "replicates" when it hands the replicator a task with at least one candidate node. (With overlapping
-\* rules the code as found keeps calling the replicator with an EMPTY candidate list: a holder remembered from
-\* an earlier rule does not lower the shortage of a later rule - a phantom shortage that copies nothing.)
-Replicates(d) == \E k \in 1..Len(d.tasks) : Len(d.tasks[k].nodes) > 0
-Quiet(hs) == \A n \in hs : LET d == Decide27(n, hs, {}, {}) IN ~Replicates(d) /\ d.del = "none"
-NoTasks(hs) == \A n \in hs : ~Replicates(Decide27(n, hs, {}, {}))
- \* a check "replicates" when it hands the replicator a task with at least one candidate node. (With overlapping
-\* rules the code as found keeps calling the replicator with an EMPTY candidate list: a holder remembered from
-\* an earlier rule does not lower the shortage of a later rule - a phantom shortage that copies nothing.)
-Replicates(d) == \E k \in 1..Len(d.tasks) : Len(d.tasks[k].nodes) > 0
-Quiet(hs) == \A n \in hs : LET d == Decide27(n, hs, {}, {}) IN ~Replicates(d) /\ d.del = "none"
-NoTasks(hs) == \A n \in hs : ~Replicates(Decide27(n, hs, {}, {}))
-t\* a check "replicates" when it hands the replicator a task with at least one candidate node. (With overlapping
-\* rules the code as found keeps calling the replicator with an EMPTY candidate list: a holder remembered from
-\* an earlier rule does not lower the shortage of a later rule - a phantom shortage that copies nothing.)
-Replicates(d) == \E k \in 1..Len(d.tasks) : Len(d.tasks[k].nodes) > 0
-Quiet(hs) == \A n \in hs : LET d == Decide27(n, hs, {}, {}) IN ~Replicates(d) /\ d.del = "none"
-NoTasks(hs) == \A n \in hs : ~Replicates(Decide27(n, hs, {}, {}))
-h\* a check "replicates" when it hands the replicator a task with at least one candidate node. (With overlapping
-\* rules the code as found keeps calling the replicator with an EMPTY candidate list: a holder remembered from
-\* an earlier rule does not lower the shortage of a later rule - a phantom shortage that copies nothing.)
-Replicates(d) == \E k \in 1..Len(d.tasks) : Len(d.tasks[k].nodes) > 0
-Quiet(hs) == \A n \in hs : LET d == Decide27(n, hs, {}, {}) IN ~Replicates(d) /\ d.del = "none"
-NoTasks(hs) == \A n \in hs : ~Replicates(Decide27(n, hs, {}, {}))
-e\* a check "replicates" when it hands the replicator a task with at least one candidate node. (With overlapping
-\* rules the code as found keeps calling the replicator with an EMPTY candidate list: a holder remembered from
-\* an earlier rule does not lower the shortage of a later rule - a phantom shortage that copies nothing.)
-Replicates(d) == \E k \in 1..Len(d.tasks) : Len(d.tasks[k].nodes) > 0
-Quiet(hs) == \A n \in hs : LET d == Decide27(n, hs, {}, {}) IN ~Replicates(d) /\ d.del = "none"
-NoTasks(hs) == \A n \in hs : ~Replicates(Decide27(n, hs, {}, {}))
- \* a check "replicates" when it hands the replicator a task with at least one candidate node. (With overlapping
-\* rules the code as found keeps calling the replicator with an EMPTY candidate list: a holder remembered from
-\* an earlier rule does not lower the shortage of a later rule - a phantom shortage that copies nothing.)
-Replicates(d) == \E k \in 1..Len(d.tasks) : Len(d.tasks[k].nodes) > 0
-Quiet(hs) == \A n \in hs : LET d == Decide27(n, hs, {}, {}) IN ~Replicates(d) /\ d.del = "none"
-NoTasks(hs) == \A n \in hs : ~Replicates(Decide27(n, hs, {}, {}))
-n\* a check "replicates" when it hands the replicator a task with at least one candidate node. (With overlapping
-\* rules the code as found keeps calling the replicator with an EMPTY candidate list: a holder remembered from
-\* an earlier rule does not lower the shortage of a later rule - a phantom shortage that copies nothing.)
-Replicates(d) == \E k \in 1..Len(d.tasks) : Len(d.tasks[k].nodes) > 0
-Quiet(hs) == \A n \in hs : LET d == Decide27(n, hs, {}, {}) IN ~Replicates(d) /\ d.del = "none"
-NoTasks(hs) == \A n \in hs : ~Replicates(Decide27(n, hs, {}, {}))
-o\* a check "replicates" when it hands the replicator a task with at least one candidate node. (With overlapping
-\* rules the code as found keeps calling the replicator with an EMPTY candidate list: a holder remembered from
-\* an earlier rule does not lower the shortage of a later rule - a phantom shortage that copies nothing.)
-Replicates(d) == \E k \in 1..Len(d.tasks) : Len(d.tasks[k].nodes) > 0
-Quiet(hs) == \A n \in hs : LET d == Decide27(n, hs, {}, {}) IN ~Replicates(d) /\ d.del = "none"
-NoTasks(hs) == \A n \in hs : ~Replicates(Decide27(n, hs, {}, {}))
-d\* a check "replicates" when it hands the replicator a task with at least one candidate node. (With overlapping
-\* rules the code as found keeps calling the replicator with an EMPTY candidate list: a holder remembered from
-\* an earlier rule does not lower the shortage of a later rule - a phantom shortage that copies nothing.)
-Replicates(d) == \E k \in 1..Len(d.tasks) : Len(d.tasks[k].nodes) > 0
-Quiet(hs) == \A n \in hs : LET d == Decide27(n, hs, {}, {}) IN ~Replicates(d) /\ d.del = "none"
-NoTasks(hs) == \A n \in hs : ~Replicates(Decide27(n, hs, {}, {}))
-e\* a check "replicates" when it hands the replicator a task with at least one candidate node. (With overlapping
-\* rules the code as found keeps calling the replicator with an EMPTY candidate list: a holder remembered from
-\* an earlier rule does not lower the shortage of a later rule - a phantom shortage that copies nothing.)
-Replicates(d) == \E k \in 1..Len(d.tasks) : Len(d.tasks[k].nodes) > 0
-Quiet(hs) == \A n \in hs : LET d == Decide27(n, hs, {}, {}) IN ~Replicates(d) /\ d.del = "none"
-NoTasks(hs) == \A n \in hs : ~Replicates(Decide27(n, hs, {}, {}))
-s\* a check "replicates" when it hands the replicator a task with at least one candidate node. (With overlapping
-\* rules the code as found keeps calling the replicator with an EMPTY candidate list: a holder remembered from
-\* an earlier rule does not lower the shortage of a later rule - a phantom shortage that copies nothing.)
-Replicates(d) == \E k \in 1..Len(d.tasks) : Len(d.tasks[k].nodes) > 0
-Quiet(hs) == \A n \in hs : LET d == Decide27(n, hs, {}, {}) IN ~Replicates(d) /\ d.del = "none"
-NoTasks(hs) == \A n \in hs : ~Replicates(Decide27(n, hs, {}, {}))
- \* a check "replicates" when it hands the replicator a task with at least one candidate node. (With overlapping
-\* rules the code as found keeps calling the replicator with an EMPTY candidate list: a holder remembered from
-\* an earlier rule does not lower the shortage of a later rule - a phantom shortage that copies nothing.)
-Replicates(d) == \E k \in 1..Len(d.tasks) : Len(d.tasks[k].nodes) > 0
-Quiet(hs) == \A n \in hs : LET d == Decide27(n, hs, {}, {}) IN ~Replicates(d) /\ d.del = "none"
-NoTasks(hs) == \A n \in hs : ~Replicates(Decide27(n, hs, {}, {}))
-i\* a check "replicates" when it hands the replicator a task with at least one candidate node. (With overlapping
-\* rules the code as found keeps calling the replicator with an EMPTY candidate list: a holder remembered from
-\* an earlier rule does not lower the shortage of a later rule - a phantom shortage that copies nothing.)
-Replicates(d) == \E k \in 1..Len(d.tasks) : Len(d.tasks[k].nodes) > 0
-Quiet(hs) == \A n \in hs : LET d == Decide27(n, hs, {}, {}) IN ~Replicates(d) /\ d.del = "none"
-NoTasks(hs) == \A n \in hs : ~Replicates(Decide27(n, hs, {}, {}))
-n\* a check "replicates" when it hands the replicator a task with at least one candidate node. (With overlapping
-\* rules the code as found keeps calling the replicator with an EMPTY candidate list: a holder remembered from
-\* an earlier rule does not lower the shortage of a later rule - a phantom shortage that copies nothing.)
-Replicates(d) == \E k \in 1..Len(d.tasks) : Len(d.tasks[k].nodes) > 0
-Quiet(hs) == \A n \in hs : LET d == Decide27(n, hs, {}, {}) IN ~Replicates(d) /\ d.del = "none"
-NoTasks(hs) == \A n \in hs : ~Replicates(Decide27(n, hs, {}, {}))
- \* a check "replicates" when it hands the replicator a task with at least one candidate node. (With overlapping
-\* rules the code as found keeps calling the replicator with an EMPTY candidate list: a holder remembered from
-\* an earlier rule does not lower the shortage of a later rule - a phantom shortage that copies nothing.)
-Replicates(d) == \E k \in 1..Len(d.tasks) : Len(d.tasks[k].nodes) > 0
-Quiet(hs) == \A n \in hs : LET d == Decide27(n, hs, {}, {}) IN ~Replicates(d) /\ d.del = "none"
-NoTasks(hs) == \A n \in hs : ~Replicates(Decide27(n, hs, {}, {}))
-r\* a check "replicates" when it hands the replicator a task with at least one candidate node. (With overlapping
-\* rules the code as found keeps calling the replicator with an EMPTY candidate list: a holder remembered from
-\* an earlier rule does not lower the shortage of a later rule - a phantom shortage that copies nothing.)
-Replicates(d) == \E k \in 1..Len(d.tasks) : Len(d.tasks[k].nodes) > 0
-Quiet(hs) == \A n \in hs : LET d == Decide27(n, hs, {}, {}) IN ~Replicates(d) /\ d.del = "none"
-NoTasks(hs) == \A n \in hs : ~Replicates(Decide27(n, hs, {}, {}))
-e\* a check "replicates" when it hands the replicator a task with at least one candidate node. (With overlapping
-\* rules the code as found keeps calling the replicator with an EMPTY candidate list: a holder remembered from
-\* an earlier rule does not lower the shortage of a later rule - a phantom shortage that copies nothing.)
-Replicates(d) == \E k \in 1..Len(d.tasks) : Len(d.tasks[k].nodes) > 0
-Quiet(hs) == \A n \in hs : LET d == Decide27(n, hs, {}, {}) IN ~Replicates(d) /\ d.del = "none"
-NoTasks(hs) == \A n \in hs : ~Replicates(Decide27(n, hs, {}, {}))
-f\* a check "replicates" when it hands the replicator a task with at least one candidate node. (With overlapping
-\* rules the code as found keeps calling the replicator with an EMPTY candidate list: a holder remembered from
-\* an earlier rule does not lower the shortage of a later rule - a phantom shortage that copies nothing.)
-Replicates(d) == \E k \in 1..Len(d.tasks) : Len(d.tasks[k].nodes) > 0
-Quiet(hs) == \A n \in hs : LET d == Decide27(n, hs, {}, {}) IN ~Replicates(d) /\ d.del = "none"
-NoTasks(hs) == \A n \in hs : ~Replicates(Decide27(n, hs, {}, {}))
-u\* a check "replicates" when it hands the replicator a task with at least one candidate node. (With overlapping
-\* rules the code as found keeps calling the replicator with an EMPTY candidate list: a holder remembered from
-\* an earlier rule does not lower the shortage of a later rule - a phantom shortage that copies nothing.)
-Replicates(d) == \E k \in 1..Len(d.tasks) : Len(d.tasks[k].nodes) > 0
-Quiet(hs) == \A n \in hs : LET d == Decide27(n, hs, {}, {}) IN ~Replicates(d) /\ d.del = "none"
-NoTasks(hs) == \A n \in hs : ~Replicates(Decide27(n, hs, {}, {}))
-s\* a check "replicates" when it hands the replicator a task with at least one candidate node. (With overlapping
-\* rules the code as found keeps calling the replicator with an EMPTY candidate list: a holder remembered from
-\* an earlier rule does not lower the shortage of a later rule - a phantom shortage that copies nothing.)
-Replicates(d) == \E k \in 1..Len(d.tasks) : Len(d.tasks[k].nodes) > 0
-Quiet(hs) == \A n \in hs : LET d == Decide27(n, hs, {}, {}) IN ~Replicates(d) /\ d.del = "none"
-NoTasks(hs) == \A n \in hs : ~Replicates(Decide27(n, hs, {}, {}))
-e\* a check "replicates" when it hands the replicator a task with at least one candidate node. (With overlapping
-\* rules the code as found keeps calling the replicator with an EMPTY candidate list: a holder remembered from
-\* an earlier rule does not lower the shortage of a later rule - a phantom shortage that copies nothing.)
-Replicates(d) == \E k \in 1..Len(d.tasks) : Len(d.tasks[k].nodes) > 0
-Quiet(hs) == \A n \in hs : LET d == Decide27(n, hs, {}, {}) IN ~Replicates(d) /\ d.del = "none"
-NoTasks(hs) == \A n \in hs : ~Replicates(Decide27(n, hs, {}, {}))
- \* a check "replicates" when it hands the replicator a task with at least one candidate node. (With overlapping
-\* rules the code as found keeps calling the replicator with an EMPTY candidate list: a holder remembered from
-\* an earlier rule does not lower the shortage of a later rule - a phantom shortage that copies nothing.)
-Replicates(d) == \E k \in 1..Len(d.tasks) : Len(d.tasks[k].nodes) > 0
-Quiet(hs) == \A n \in hs : LET d == Decide27(n, hs, {}, {}) IN ~Replicates(d) /\ d.del = "none"
-NoTasks(hs) == \A n \in hs : ~Replicates(Decide27(n, hs, {}, {}))
-a\* a check "replicates" when it hands the replicator a task with at least one candidate node. (With overlapping
-\* rules the code as found keeps calling the replicator with an EMPTY candidate list: a holder remembered from
-\* an earlier rule does not lower the shortage of a later rule - a phantom shortage that copies nothing.)
-Replicates(d) == \E k \in 1..Len(d.tasks) : Len(d.tasks[k].nodes) > 0
-Quiet(hs) == \A n \in hs : LET d == Decide27(n, hs, {}, {}) IN ~Replicates(d) /\ d.del = "none"
-NoTasks(hs) == \A n \in hs : ~Replicates(Decide27(n, hs, {}, {}))
-n\* a check "replicates" when it hands the replicator a task with at least one candidate node. (With overlapping
-\* rules the code as found keeps calling the replicator with an EMPTY candidate list: a holder remembered from
-\* an earlier rule does not lower the shortage of a later rule - a phantom shortage that copies nothing.)
-Replicates(d) == \E k \in 1..Len(d.tasks) : Len(d.tasks[k].nodes) > 0
-Quiet(hs) == \A n \in hs : LET d == Decide27(n, hs, {}, {}) IN ~Replicates(d) /\ d.del = "none"
-NoTasks(hs) == \A n \in hs : ~Replicates(Decide27(n, hs, {}, {}))
-s\* a check "replicates" when it hands the replicator a task with at least one candidate node. (With overlapping
-\* rules the code as found keeps calling the replicator with an EMPTY candidate list: a holder remembered from
-\* an earlier rule does not lower the shortage of a later rule - a phantom shortage that copies nothing.)
-Replicates(d) == \E k \in 1..Len(d.tasks) : Len(d.tasks[k].nodes) > 0
-Quiet(hs) == \A n \in hs : LET d == Decide27(n, hs, {}, {}) IN ~Replicates(d) /\ d.del = "none"
-NoTasks(hs) == \A n \in hs : ~Replicates(Decide27(n, hs, {}, {}))
-w\* a check "replicates" when it hands the replicator a task with at least one candidate node. (With overlapping
-\* rules the code as found keeps calling the replicator with an EMPTY candidate list: a holder remembered from
-\* an earlier rule does not lower the shortage of a later rule - a phantom shortage that copies nothing.)
-Replicates(d) == \E k \in 1..Len(d.tasks) : Len(d.tasks[k].nodes) > 0
-Quiet(hs) == \A n \in hs : LET d == Decide27(n, hs, {}, {}) IN ~Replicates(d) /\ d.del = "none"
-NoTasks(hs) == \A n \in hs : ~Replicates(Decide27(n, hs, {}, {}))
-e\* a check "replicates" when it hands the replicator a task with at least one candidate node. (With overlapping
-\* rules the code as found keeps calling the replicator with an EMPTY candidate list: a holder remembered from
-\* an earlier rule does not lower the shortage of a later rule - a phantom shortage that copies nothing.)
-Replicates(d) == \E k \in 1..Len(d.tasks) : Len(d.tasks[k].nodes) > 0
-Quiet(hs) == \A n \in hs : LET d == Decide27(n, hs, {}, {}) IN ~Replicates(d) /\ d.del = "none"
-NoTasks(hs) == \A n \in hs : ~Replicates(Decide27(n, hs, {}, {}))
-r\* a check "replicates" when it hands the replicator a task with at least one candidate node. (With overlapping
-\* rules the code as found keeps calling the replicator with an EMPTY candidate list: a holder remembered from
-\* an earlier rule does not lower the shortage of a later rule - a phantom shortage that copies nothing.)
-Replicates(d) == \E k \in 1..Len(d.tasks) : Len(d.tasks[k].nodes) > 0
-Quiet(hs) == \A n \in hs : LET d == Decide27(n, hs, {}, {}) IN ~Replicates(d) /\ d.del = "none"
-NoTasks(hs) == \A n \in hs : ~Replicates(Decide27(n, hs, {}, {}))
- \* a check "replicates" when it hands the replicator a task with at least one candidate node. (With overlapping
-\* rules the code as found keeps calling the replicator with an EMPTY candidate list: a holder remembered from
-\* an earlier rule does not lower the shortage of a later rule - a phantom shortage that copies nothing.)
-Replicates(d) == \E k \in 1..Len(d.tasks) : Len(d.tasks[k].nodes) > 0
-Quiet(hs) == \A n \in hs : LET d == Decide27(n, hs, {}, {}) IN ~Replicates(d) /\ d.del = "none"
-NoTasks(hs) == \A n \in hs : ~Replicates(Decide27(n, hs, {}, {}))
-H\* a check "replicates" when it hands the replicator a task with at least one candidate node. (With overlapping
-\* rules the code as found keeps calling the replicator with an EMPTY candidate list: a holder remembered from
-\* an earlier rule does not lower the shortage of a later rule - a phantom shortage that copies nothing.)
-Replicates(d) == \E k \in 1..Len(d.tasks) : Len(d.tasks[k].nodes) > 0
-Quiet(hs) == \A n \in hs : LET d == Decide27(n, hs, {}, {}) IN ~Replicates(d) /\ d.del = "none"
-NoTasks(hs) == \A n \in hs : ~Replicates(Decide27(n, hs, {}, {}))
-E\* a check "replicates" when it hands the replicator a task with at least one candidate node. (With overlapping
-\* rules the code as found keeps calling the replicator with an EMPTY candidate list: a holder remembered from
-\* an earlier rule does not lower the shortage of a later rule - a phantom shortage that copies nothing.)
-Replicates(d) == \E k \in 1..Len(d.tasks) : Len(d.tasks[k].nodes) > 0
-Quiet(hs) == \A n \in hs : LET d == Decide27(n, hs, {}, {}) IN ~Replicates(d) /\ d.del = "none"
-NoTasks(hs) == \A n \in hs : ~Replicates(Decide27(n, hs, {}, {}))
-A\* a check "replicates" when it hands the replicator a task with at least one candidate node. (With overlapping
-\* rules the code as found keeps calling the replicator with an EMPTY candidate list: a holder remembered from
-\* an earlier rule does not lower the shortage of a later rule - a phantom shortage that copies nothing.)
-Replicates(d) == \E k \in 1..Len(d.tasks) : Len(d.tasks[k].nodes) > 0
-Quiet(hs) == \A n \in hs : LET d == Decide27(n, hs, {}, {}) IN ~Replicates(d) /\ d.del = "none"
-NoTasks(hs) == \A n \in hs : ~Replicates(Decide27(n, hs, {}, {}))
-D\* a check "replicates" when it hands the replicator a task with at least one candidate node. (With overlapping
-\* rules the code as found keeps calling the replicator with an EMPTY candidate list: a holder remembered from
-\* an earlier rule does not lower the shortage of a later rule - a phantom shortage that copies nothing.)
-Replicates(d) == \E k \in 1..Len(d.tasks) : Len(d.tasks[k].nodes) > 0
-Quiet(hs) == \A n \in hs : LET d == Decide27(n, hs, {}, {}) IN ~Replicates(d) /\ d.del = "none"
-NoTasks(hs) == \A n \in hs : ~Replicates(Decide27(n, hs, {}, {}))
- \* a check "replicates" when it hands the replicator a task with at least one candidate node. (With overlapping
-\* rules the code as found keeps calling the replicator with an EMPTY candidate list: a holder remembered from
-\* an earlier rule does not lower the shortage of a later rule - a phantom shortage that copies nothing.)
-Replicates(d) == \E k \in 1..Len(d.tasks) : Len(d.tasks[k].nodes) > 0
-Quiet(hs) == \A n \in hs : LET d == Decide27(n, hs, {}, {}) IN ~Replicates(d) /\ d.del = "none"
-NoTasks(hs) == \A n \in hs : ~Replicates(Decide27(n, hs, {}, {}))
-b\* a check "replicates" when it hands the replicator a task with at least one candidate node. (With overlapping
-\* rules the code as found keeps calling the replicator with an EMPTY candidate list: a holder remembered from
-\* an earlier rule does not lower the shortage of a later rule - a phantom shortage that copies nothing.)
-Replicates(d) == \E k \in 1..Len(d.tasks) : Len(d.tasks[k].nodes) > 0
-Quiet(hs) == \A n \in hs : LET d == Decide27(n, hs, {}, {}) IN ~Replicates(d) /\ d.del = "none"
-NoTasks(hs) == \A n \in hs : ~Replicates(Decide27(n, hs, {}, {}))
-u\* a check "replicates" when it hands the replicator a task with at least one candidate node. (With overlapping
-\* rules the code as found keeps calling the replicator with an EMPTY candidate list: a holder remembered from
-\* an earlier rule does not lower the shortage of a later rule - a phantom shortage that copies nothing.)
-Replicates(d) == \E k \in 1..Len(d.tasks) : Len(d.tasks[k].nodes) > 0
-Quiet(hs) == \A n \in hs : LET d == Decide27(n, hs, {}, {}) IN ~Replicates(d) /\ d.del = "none"
-NoTasks(hs) == \A n \in hs : ~Replicates(Decide27(n, hs, {}, {}))
-t\* a check "replicates" when it hands the replicator a task with at least one candidate node. (With overlapping
-\* rules the code as found keeps calling the replicator with an EMPTY candidate list: a holder remembered from
-\* an earlier rule does not lower the shortage of a later rule - a phantom shortage that copies nothing.)
-Replicates(d) == \E k \in 1..Len(d.tasks) : Len(d.tasks[k].nodes) > 0
-Quiet(hs) == \A n \in hs : LET d == Decide27(n, hs, {}, {}) IN ~Replicates(d) /\ d.del = "none"
-NoTasks(hs) == \A n \in hs : ~Replicates(Decide27(n, hs, {}, {}))
-
-\* a check "replicates" when it hands the replicator a task with at least one candidate node. (With overlapping
-\* rules the code as found keeps calling the replicator with an EMPTY candidate list: a holder remembered from
-\* an earlier rule does not lower the shortage of a later rule - a phantom shortage that copies nothing.)
-Replicates(d) == \E k \in 1..Len(d.tasks) : Len(d.tasks[k].nodes) > 0
-Quiet(hs) == \A n \in hs : LET d == Decide27(n, hs, {}, {}) IN ~Replicates(d) /\ d.del = "none"
-NoTasks(hs) == \A n \in hs : ~Replicates(Decide27(n, hs, {}, {}))
-\\* a check "replicates" when it hands the replicator a task with at least one candidate node. (With overlapping
-\* rules the code as found keeps calling the replicator with an EMPTY candidate list: a holder remembered from
-\* an earlier rule does not lower the shortage of a later rule - a phantom shortage that copies nothing.)
-Replicates(d) == \E k \in 1..Len(d.tasks) : Len(d.tasks[k].nodes) > 0
-Quiet(hs) == \A n \in hs : LET d == Decide27(n, hs, {}, {}) IN ~Replicates(d) /\ d.del = "none"
-NoTasks(hs) == \A n \in hs : ~Replicates(Decide27(n, hs, {}, {}))
-*\* a check "replicates" when it hands the replicator a task with at least one candidate node. (With overlapping
-\* rules the code as found keeps calling the replicator with an EMPTY candidate list: a holder remembered from
-\* an earlier rule does not lower the shortage of a later rule - a phantom shortage that copies nothing.)
-Replicates(d) == \E k \in 1..Len(d.tasks) : Len(d.tasks[k].nodes) > 0
-Quiet(hs) == \A n \in hs : LET d == Decide27(n, hs, {}, {}) IN ~Replicates(d) /\ d.del = "none"
-NoTasks(hs) == \A n \in hs : ~Replicates(Decide27(n, hs, {}, {}))
- \* a check "replicates" when it hands the replicator a task with at least one candidate node. (With overlapping
-\* rules the code as found keeps calling the replicator with an EMPTY candidate list: a holder remembered from
-\* an earlier rule does not lower the shortage of a later rule - a phantom shortage that copies nothing.)
-Replicates(d) == \E k \in 1..Len(d.tasks) : Len(d.tasks[k].nodes) > 0
-Quiet(hs) == \A n \in hs : LET d == Decide27(n, hs, {}, {}) IN ~Replicates(d) /\ d.del = "none"
-NoTasks(hs) == \A n \in hs : ~Replicates(Decide27(n, hs, {}, {}))
-d\* a check "replicates" when it hands the replicator a task with at least one candidate node. (With overlapping
-\* rules the code as found keeps calling the replicator with an EMPTY candidate list: a holder remembered from
-\* an earlier rule does not lower the shortage of a later rule - a phantom shortage that copies nothing.)
-Replicates(d) == \E k \in 1..Len(d.tasks) : Len(d.tasks[k].nodes) > 0
-Quiet(hs) == \A n \in hs : LET d == Decide27(n, hs, {}, {}) IN ~Replicates(d) /\ d.del = "none"
-NoTasks(hs) == \A n \in hs : ~Replicates(Decide27(n, hs, {}, {}))
-o\* a check "replicates" when it hands the replicator a task with at least one candidate node. (With overlapping
-\* rules the code as found keeps calling the replicator with an EMPTY candidate list: a holder remembered from
-\* an earlier rule does not lower the shortage of a later rule - a phantom shortage that copies nothing.)
-Replicates(d) == \E k \in 1..Len(d.tasks) : Len(d.tasks[k].nodes) > 0
-Quiet(hs) == \A n \in hs : LET d == Decide27(n, hs, {}, {}) IN ~Replicates(d) /\ d.del = "none"
-NoTasks(hs) == \A n \in hs : ~Replicates(Decide27(n, hs, {}, {}))
- \* a check "replicates" when it hands the replicator a task with at least one candidate node. (With overlapping
-\* rules the code as found keeps calling the replicator with an EMPTY candidate list: a holder remembered from
-\* an earlier rule does not lower the shortage of a later rule - a phantom shortage that copies nothing.)
-Replicates(d) == \E k \in 1..Len(d.tasks) : Len(d.tasks[k].nodes) > 0
-Quiet(hs) == \A n \in hs : LET d == Decide27(n, hs, {}, {}) IN ~Replicates(d) /\ d.del = "none"
-NoTasks(hs) == \A n \in hs : ~Replicates(Decide27(n, hs, {}, {}))
-n\* a check "replicates" when it hands the replicator a task with at least one candidate node. (With overlapping
-\* rules the code as found keeps calling the replicator with an EMPTY candidate list: a holder remembered from
-\* an earlier rule does not lower the shortage of a later rule - a phantom shortage that copies nothing.)
-Replicates(d) == \E k \in 1..Len(d.tasks) : Len(d.tasks[k].nodes) > 0
-Quiet(hs) == \A n \in hs : LET d == Decide27(n, hs, {}, {}) IN ~Replicates(d) /\ d.del = "none"
-NoTasks(hs) == \A n \in hs : ~Replicates(Decide27(n, hs, {}, {}))
-o\* a check "replicates" when it hands the replicator a task with at least one candidate node. (With overlapping
-\* rules the code as found keeps calling the replicator with an EMPTY candidate list: a holder remembered from
-\* an earlier rule does not lower the shortage of a later rule - a phantom shortage that copies nothing.)
-Replicates(d) == \E k \in 1..Len(d.tasks) : Len(d.tasks[k].nodes) > 0
-Quiet(hs) == \A n \in hs : LET d == Decide27(n, hs, {}, {}) IN ~Replicates(d) /\ d.del = "none"
-NoTasks(hs) == \A n \in hs : ~Replicates(Decide27(n, hs, {}, {}))
-t\* a check "replicates" when it hands the replicator a task with at least one candidate node. (With overlapping
-\* rules the code as found keeps calling the replicator with an EMPTY candidate list: a holder remembered from
-\* an earlier rule does not lower the shortage of a later rule - a phantom shortage that copies nothing.)
-Replicates(d) == \E k \in 1..Len(d.tasks) : Len(d.tasks[k].nodes) > 0
-Quiet(hs) == \A n \in hs : LET d == Decide27(n, hs, {}, {}) IN ~Replicates(d) /\ d.del = "none"
-NoTasks(hs) == \A n \in hs : ~Replicates(Decide27(n, hs, {}, {}))
- \* a check "replicates" when it hands the replicator a task with at least one candidate node. (With overlapping
-\* rules the code as found keeps calling the replicator with an EMPTY candidate list: a holder remembered from
-\* an earlier rule does not lower the shortage of a later rule - a phantom shortage that copies nothing.)
-Replicates(d) == \E k \in 1..Len(d.tasks) : Len(d.tasks[k].nodes) > 0
-Quiet(hs) == \A n \in hs : LET d == Decide27(n, hs, {}, {}) IN ~Replicates(d) /\ d.del = "none"
-NoTasks(hs) == \A n \in hs : ~Replicates(Decide27(n, hs, {}, {}))
-a\* a check "replicates" when it hands the replicator a task with at least one candidate node. (With overlapping
-\* rules the code as found keeps calling the replicator with an EMPTY candidate list: a holder remembered from
-\* an earlier rule does not lower the shortage of a later rule - a phantom shortage that copies nothing.)
-Replicates(d) == \E k \in 1..Len(d.tasks) : Len(d.tasks[k].nodes) > 0
-Quiet(hs) == \A n \in hs : LET d == Decide27(n, hs, {}, {}) IN ~Replicates(d) /\ d.del = "none"
-NoTasks(hs) == \A n \in hs : ~Replicates(Decide27(n, hs, {}, {}))
-c\* a check "replicates" when it hands the replicator a task with at least one candidate node. (With overlapping
-\* rules the code as found keeps calling the replicator with an EMPTY candidate list: a holder remembered from
-\* an earlier rule does not lower the shortage of a later rule - a phantom shortage that copies nothing.)
-Replicates(d) == \E k \in 1..Len(d.tasks) : Len(d.tasks[k].nodes) > 0
-Quiet(hs) == \A n \in hs : LET d == Decide27(n, hs, {}, {}) IN ~Replicates(d) /\ d.del = "none"
-NoTasks(hs) == \A n \in hs : ~Replicates(Decide27(n, hs, {}, {}))
-c\* a check "replicates" when it hands the replicator a task with at least one candidate node. (With overlapping
-\* rules the code as found keeps calling the replicator with an EMPTY candidate list: a holder remembered from
-\* an earlier rule does not lower the shortage of a later rule - a phantom shortage that copies nothing.)
-Replicates(d) == \E k \in 1..Len(d.tasks) : Len(d.tasks[k].nodes) > 0
-Quiet(hs) == \A n \in hs : LET d == Decide27(n, hs, {}, {}) IN ~Replicates(d) /\ d.del = "none"
-NoTasks(hs) == \A n \in hs : ~Replicates(Decide27(n, hs, {}, {}))
-e\* a check "replicates" when it hands the replicator a task with at least one candidate node. (With overlapping
-\* rules the code as found keeps calling the replicator with an EMPTY candidate list: a holder remembered from
-\* an earlier rule does not lower the shortage of a later rule - a phantom shortage that copies nothing.)
-Replicates(d) == \E k \in 1..Len(d.tasks) : Len(d.tasks[k].nodes) > 0
-Quiet(hs) == \A n \in hs : LET d == Decide27(n, hs, {}, {}) IN ~Replicates(d) /\ d.del = "none"
-NoTasks(hs) == \A n \in hs : ~Replicates(Decide27(n, hs, {}, {}))
-p\* a check "replicates" when it hands the replicator a task with at least one candidate node. (With overlapping
-\* rules the code as found keeps calling the replicator with an EMPTY candidate list: a holder remembered from
-\* an earlier rule does not lower the shortage of a later rule - a phantom shortage that copies nothing.)
-Replicates(d) == \E k \in 1..Len(d.tasks) : Len(d.tasks[k].nodes) > 0
-Quiet(hs) == \A n \in hs : LET d == Decide27(n, hs, {}, {}) IN ~Replicates(d) /\ d.del = "none"
-NoTasks(hs) == \A n \in hs : ~Replicates(Decide27(n, hs, {}, {}))
-t\* a check "replicates" when it hands the replicator a task with at least one candidate node. (With overlapping
-\* rules the code as found keeps calling the replicator with an EMPTY candidate list: a holder remembered from
-\* an earlier rule does not lower the shortage of a later rule - a phantom shortage that copies nothing.)
-Replicates(d) == \E k \in 1..Len(d.tasks) : Len(d.tasks[k].nodes) > 0
-Quiet(hs) == \A n \in hs : LET d == Decide27(n, hs, {}, {}) IN ~Replicates(d) /\ d.del = "none"
-NoTasks(hs) == \A n \in hs : ~Replicates(Decide27(n, hs, {}, {}))
- \* a check "replicates" when it hands the replicator a task with at least one candidate node. (With overlapping
-\* rules the code as found keeps calling the replicator with an EMPTY candidate list: a holder remembered from
-\* an earlier rule does not lower the shortage of a later rule - a phantom shortage that copies nothing.)
-Replicates(d) == \E k \in 1..Len(d.tasks) : Len(d.tasks[k].nodes) > 0
-Quiet(hs) == \A n \in hs : LET d == Decide27(n, hs, {}, {}) IN ~Replicates(d) /\ d.del = "none"
-NoTasks(hs) == \A n \in hs : ~Replicates(Decide27(n, hs, {}, {}))
-r\* a check "replicates" when it hands the replicator a task with at least one candidate node. (With overlapping
-\* rules the code as found keeps calling the replicator with an EMPTY candidate list: a holder remembered from
-\* an earlier rule does not lower the shortage of a later rule - a phantom shortage that copies nothing.)
-Replicates(d) == \E k \in 1..Len(d.tasks) : Len(d.tasks[k].nodes) > 0
-Quiet(hs) == \A n \in hs : LET d == Decide27(n, hs, {}, {}) IN ~Replicates(d) /\ d.del = "none"
-NoTasks(hs) == \A n \in hs : ~Replicates(Decide27(n, hs, {}, {}))
-e\* a check "replicates" when it hands the replicator a task with at least one candidate node. (With overlapping
-\* rules the code as found keeps calling the replicator with an EMPTY candidate list: a holder remembered from
-\* an earlier rule does not lower the shortage of a later rule - a phantom shortage that copies nothing.)
-Replicates(d) == \E k \in 1..Len(d.tasks) : Len(d.tasks[k].nodes) > 0
-Quiet(hs) == \A n \in hs : LET d == Decide27(n, hs, {}, {}) IN ~Replicates(d) /\ d.del = "none"
-NoTasks(hs) == \A n \in hs : ~Replicates(Decide27(n, hs, {}, {}))
-p\* a check "replicates" when it hands the replicator a task with at least one candidate node. (With overlapping
-\* rules the code as found keeps calling the replicator with an EMPTY candidate list: a holder remembered from
-\* an earlier rule does not lower the shortage of a later rule - a phantom shortage that copies nothing.)
-Replicates(d) == \E k \in 1..Len(d.tasks) : Len(d.tasks[k].nodes) > 0
-Quiet(hs) == \A n \in hs : LET d == Decide27(n, hs, {}, {}) IN ~Replicates(d) /\ d.del = "none"
-NoTasks(hs) == \A n \in hs : ~Replicates(Decide27(n, hs, {}, {}))
-l\* a check "replicates" when it hands the replicator a task with at least one candidate node. (With overlapping
-\* rules the code as found keeps calling the replicator with an EMPTY candidate list: a holder remembered from
-\* an earlier rule does not lower the shortage of a later rule - a phantom shortage that copies nothing.)
-Replicates(d) == \E k \in 1..Len(d.tasks) : Len(d.tasks[k].nodes) > 0
-Quiet(hs) == \A n \in hs : LET d == Decide27(n, hs, {}, {}) IN ~Replicates(d) /\ d.del = "none"
-NoTasks(hs) == \A n \in hs : ~Replicates(Decide27(n, hs, {}, {}))
-i\* a check "replicates" when it hands the replicator a task with at least one candidate node. (With overlapping
-\* rules the code as found keeps calling the replicator with an EMPTY candidate list: a holder remembered from
-\* an earlier rule does not lower the shortage of a later rule - a phantom shortage that copies nothing.)
-Replicates(d) == \E k \in 1..Len(d.tasks) : Len(d.tasks[k].nodes) > 0
-Quiet(hs) == \A n \in hs : LET d == Decide27(n, hs, {}, {}) IN ~Replicates(d) /\ d.del = "none"
-NoTasks(hs) == \A n \in hs : ~Replicates(Decide27(n, hs, {}, {}))
-c\* a check "replicates" when it hands the replicator a task with at least one candidate node. (With overlapping
-\* rules the code as found keeps calling the replicator with an EMPTY candidate list: a holder remembered from
-\* an earlier rule does not lower the shortage of a later rule - a phantom shortage that copies nothing.)
-Replicates(d) == \E k \in 1..Len(d.tasks) : Len(d.tasks[k].nodes) > 0
-Quiet(hs) == \A n \in hs : LET d == Decide27(n, hs, {}, {}) IN ~Replicates(d) /\ d.del = "none"
-NoTasks(hs) == \A n \in hs : ~Replicates(Decide27(n, hs, {}, {}))
-a\* a check "replicates" when it hands the replicator a task with at least one candidate node. (With overlapping
-\* rules the code as found keeps calling the replicator with an EMPTY candidate list: a holder remembered from
-\* an earlier rule does not lower the shortage of a later rule - a phantom shortage that copies nothing.)
-Replicates(d) == \E k \in 1..Len(d.tasks) : Len(d.tasks[k].nodes) > 0
-Quiet(hs) == \A n \in hs : LET d == Decide27(n, hs, {}, {}) IN ~Replicates(d) /\ d.del = "none"
-NoTasks(hs) == \A n \in hs : ~Replicates(Decide27(n, hs, {}, {}))
-s\* a check "replicates" when it hands the replicator a task with at least one candidate node. (With overlapping
-\* rules the code as found keeps calling the replicator with an EMPTY candidate list: a holder remembered from
-\* an earlier rule does not lower the shortage of a later rule - a phantom shortage that copies nothing.)
-Replicates(d) == \E k \in 1..Len(d.tasks) : Len(d.tasks[k].nodes) > 0
-Quiet(hs) == \A n \in hs : LET d == Decide27(n, hs, {}, {}) IN ~Replicates(d) /\ d.del = "none"
-NoTasks(hs) == \A n \in hs : ~Replicates(Decide27(n, hs, {}, {}))
-
-\* a check "replicates" when it hands the replicator a task with at least one candidate node. (With overlapping
-\* rules the code as found keeps calling the replicator with an EMPTY candidate list: a holder remembered from
-\* an earlier rule does not lower the shortage of a later rule - a phantom shortage that copies nothing.)
-Replicates(d) == \E k \in 1..Len(d.tasks) : Len(d.tasks[k].nodes) > 0
-Quiet(hs) == \A n \in hs : LET d == Decide27(n, hs, {}, {}) IN ~Replicates(d) /\ d.del = "none"
-NoTasks(hs) == \A n \in hs : ~Replicates(Decide27(n, hs, {}, {}))
-C\* a check "replicates" when it hands the replicator a task with at least one candidate node. (With overlapping
-\* rules the code as found keeps calling the replicator with an EMPTY candidate list: a holder remembered from
-\* an earlier rule does not lower the shortage of a later rule - a phantom shortage that copies nothing.)
-Replicates(d) == \E k \in 1..Len(d.tasks) : Len(d.tasks[k].nodes) > 0
-Quiet(hs) == \A n \in hs : LET d == Decide27(n, hs, {}, {}) IN ~Replicates(d) /\ d.del = "none"
-NoTasks(hs) == \A n \in hs : ~Replicates(Decide27(n, hs, {}, {}))
-h\* a check "replicates" when it hands the replicator a task with at least one candidate node. (With overlapping
-\* rules the code as found keeps calling the replicator with an EMPTY candidate list: a holder remembered from
-\* an earlier rule does not lower the shortage of a later rule - a phantom shortage that copies nothing.)
-Replicates(d) == \E k \in 1..Len(d.tasks) : Len(d.tasks[k].nodes) > 0
-Quiet(hs) == \A n \in hs : LET d == Decide27(n, hs, {}, {}) IN ~Replicates(d) /\ d.del = "none"
-NoTasks(hs) == \A n \in hs : ~Replicates(Decide27(n, hs, {}, {}))
-e\* a check "replicates" when it hands the replicator a task with at least one candidate node. (With overlapping
-\* rules the code as found keeps calling the replicator with an EMPTY candidate list: a holder remembered from
-\* an earlier rule does not lower the shortage of a later rule - a phantom shortage that copies nothing.)
-Replicates(d) == \E k \in 1..Len(d.tasks) : Len(d.tasks[k].nodes) > 0
-Quiet(hs) == \A n \in hs : LET d == Decide27(n, hs, {}, {}) IN ~Replicates(d) /\ d.del = "none"
-NoTasks(hs) == \A n \in hs : ~Replicates(Decide27(n, hs, {}, {}))
-c\* a check "replicates" when it hands the replicator a task with at least one candidate node. (With overlapping
-\* rules the code as found keeps calling the replicator with an EMPTY candidate list: a holder remembered from
-\* an earlier rule does not lower the shortage of a later rule - a phantom shortage that copies nothing.)
-Replicates(d) == \E k \in 1..Len(d.tasks) : Len(d.tasks[k].nodes) > 0
-Quiet(hs) == \A n \in hs : LET d == Decide27(n, hs, {}, {}) IN ~Replicates(d) /\ d.del = "none"
-NoTasks(hs) == \A n \in hs : ~Replicates(Decide27(n, hs, {}, {}))
-k\* a check "replicates" when it hands the replicator a task with at least one candidate node. (With overlapping
-\* rules the code as found keeps calling the replicator with an EMPTY candidate list: a holder remembered from
-\* an earlier rule does not lower the shortage of a later rule - a phantom shortage that copies nothing.)
-Replicates(d) == \E k \in 1..Len(d.tasks) : Len(d.tasks[k].nodes) > 0
-Quiet(hs) == \A n \in hs : LET d == Decide27(n, hs, {}, {}) IN ~Replicates(d) /\ d.del = "none"
-NoTasks(hs) == \A n \in hs : ~Replicates(Decide27(n, hs, {}, {}))
-(\* a check "replicates" when it hands the replicator a task with at least one candidate node. (With overlapping
-\* rules the code as found keeps calling the replicator with an EMPTY candidate list: a holder remembered from
-\* an earlier rule does not lower the shortage of a later rule - a phantom shortage that copies nothing.)
-Replicates(d) == \E k \in 1..Len(d.tasks) : Len(d.tasks[k].nodes) > 0
-Quiet(hs) == \A n \in hs : LET d == Decide27(n, hs, {}, {}) IN ~Replicates(d) /\ d.del = "none"
-NoTasks(hs) == \A n \in hs : ~Replicates(Decide27(n, hs, {}, {}))
-n\* a check "replicates" when it hands the replicator a task with at least one candidate node. (With overlapping
-\* rules the code as found keeps calling the replicator with an EMPTY candidate list: a holder remembered from
-\* an earlier rule does not lower the shortage of a later rule - a phantom shortage that copies nothing.)
-Replicates(d) == \E k \in 1..Len(d.tasks) : Len(d.tasks[k].nodes) > 0
-Quiet(hs) == \A n \in hs : LET d == Decide27(n, hs, {}, {}) IN ~Replicates(d) /\ d.del = "none"
-NoTasks(hs) == \A n \in hs : ~Replicates(Decide27(n, hs, {}, {}))
-,\* a check "replicates" when it hands the replicator a task with at least one candidate node. (With overlapping
-\* rules the code as found keeps calling the replicator with an EMPTY candidate list: a holder remembered from
-\* an earlier rule does not lower the shortage of a later rule - a phantom shortage that copies nothing.)
-Replicates(d) == \E k \in 1..Len(d.tasks) : Len(d.tasks[k].nodes) > 0
-Quiet(hs) == \A n \in hs : LET d == Decide27(n, hs, {}, {}) IN ~Replicates(d) /\ d.del = "none"
-NoTasks(hs) == \A n \in hs : ~Replicates(Decide27(n, hs, {}, {}))
- \* a check "replicates" when it hands the replicator a task with at least one candidate node. (With overlapping
-\* rules the code as found keeps calling the replicator with an EMPTY candidate list: a holder remembered from
-\* an earlier rule does not lower the shortage of a later rule - a phantom shortage that copies nothing.)
-Replicates(d) == \E k \in 1..Len(d.tasks) : Len(d.tasks[k].nodes) > 0
-Quiet(hs) == \A n \in hs : LET d == Decide27(n, hs, {}, {}) IN ~Replicates(d) /\ d.del = "none"
-NoTasks(hs) == \A n \in hs : ~Replicates(Decide27(n, hs, {}, {}))
-d\* a check "replicates" when it hands the replicator a task with at least one candidate node. (With overlapping
-\* rules the code as found keeps calling the replicator with an EMPTY candidate list: a holder remembered from
-\* an earlier rule does not lower the shortage of a later rule - a phantom shortage that copies nothing.)
-Replicates(d) == \E k \in 1..Len(d.tasks) : Len(d.tasks[k].nodes) > 0
-Quiet(hs) == \A n \in hs : LET d == Decide27(n, hs, {}, {}) IN ~Replicates(d) /\ d.del = "none"
-NoTasks(hs) == \A n \in hs : ~Replicates(Decide27(n, hs, {}, {}))
-o\* a check "replicates" when it hands the replicator a task with at least one candidate node. (With overlapping
-\* rules the code as found keeps calling the replicator with an EMPTY candidate list: a holder remembered from
-\* an earlier rule does not lower the shortage of a later rule - a phantom shortage that copies nothing.)
-Replicates(d) == \E k \in 1..Len(d.tasks) : Len(d.tasks[k].nodes) > 0
-Quiet(hs) == \A n \in hs : LET d == Decide27(n, hs, {}, {}) IN ~Replicates(d) /\ d.del = "none"
-NoTasks(hs) == \A n \in hs : ~Replicates(Decide27(n, hs, {}, {}))
-w\* a check "replicates" when it hands the replicator a task with at least one candidate node. (With overlapping
-\* rules the code as found keeps calling the replicator with an EMPTY candidate list: a holder remembered from
-\* an earlier rule does not lower the shortage of a later rule - a phantom shortage that copies nothing.)
-Replicates(d) == \E k \in 1..Len(d.tasks) : Len(d.tasks[k].nodes) > 0
-Quiet(hs) == \A n \in hs : LET d == Decide27(n, hs, {}, {}) IN ~Replicates(d) /\ d.del = "none"
-NoTasks(hs) == \A n \in hs : ~Replicates(Decide27(n, hs, {}, {}))
-n\* a check "replicates" when it hands the replicator a task with at least one candidate node. (With overlapping
-\* rules the code as found keeps calling the replicator with an EMPTY candidate list: a holder remembered from
-\* an earlier rule does not lower the shortage of a later rule - a phantom shortage that copies nothing.)
-Replicates(d) == \E k \in 1..Len(d.tasks) : Len(d.tasks[k].nodes) > 0
-Quiet(hs) == \A n \in hs : LET d == Decide27(n, hs, {}, {}) IN ~Replicates(d) /\ d.del = "none"
-NoTasks(hs) == \A n \in hs : ~Replicates(Decide27(n, hs, {}, {}))
-,\* a check "replicates" when it hands the replicator a task with at least one candidate node. (With overlapping
-\* rules the code as found keeps calling the replicator with an EMPTY candidate list: a holder remembered from
-\* an earlier rule does not lower the shortage of a later rule - a phantom shortage that copies nothing.)
-Replicates(d) == \E k \in 1..Len(d.tasks) : Len(d.tasks[k].nodes) > 0
-Quiet(hs) == \A n \in hs : LET d == Decide27(n, hs, {}, {}) IN ~Replicates(d) /\ d.del = "none"
-NoTasks(hs) == \A n \in hs : ~Replicates(Decide27(n, hs, {}, {}))
- \* a check "replicates" when it hands the replicator a task with at least one candidate node. (With overlapping
-\* rules the code as found keeps calling the replicator with an EMPTY candidate list: a holder remembered from
-\* an earlier rule does not lower the shortage of a later rule - a phantom shortage that copies nothing.)
-Replicates(d) == \E k \in 1..Len(d.tasks) : Len(d.tasks[k].nodes) > 0
-Quiet(hs) == \A n \in hs : LET d == Decide27(n, hs, {}, {}) IN ~Replicates(d) /\ d.del = "none"
-NoTasks(hs) == \A n \in hs : ~Replicates(Decide27(n, hs, {}, {}))
-r\* a check "replicates" when it hands the replicator a task with at least one candidate node. (With overlapping
-\* rules the code as found keeps calling the replicator with an EMPTY candidate list: a holder remembered from
-\* an earlier rule does not lower the shortage of a later rule - a phantom shortage that copies nothing.)
-Replicates(d) == \E k \in 1..Len(d.tasks) : Len(d.tasks[k].nodes) > 0
-Quiet(hs) == \A n \in hs : LET d == Decide27(n, hs, {}, {}) IN ~Replicates(d) /\ d.del = "none"
-NoTasks(hs) == \A n \in hs : ~Replicates(Decide27(n, hs, {}, {}))
-e\* a check "replicates" when it hands the replicator a task with at least one candidate node. (With overlapping
-\* rules the code as found keeps calling the replicator with an EMPTY candidate list: a holder remembered from
-\* an earlier rule does not lower the shortage of a later rule - a phantom shortage that copies nothing.)
-Replicates(d) == \E k \in 1..Len(d.tasks) : Len(d.tasks[k].nodes) > 0
-Quiet(hs) == \A n \in hs : LET d == Decide27(n, hs, {}, {}) IN ~Replicates(d) /\ d.del = "none"
-NoTasks(hs) == \A n \in hs : ~Replicates(Decide27(n, hs, {}, {}))
-f\* a check "replicates" when it hands the replicator a task with at least one candidate node. (With overlapping
-\* rules the code as found keeps calling the replicator with an EMPTY candidate list: a holder remembered from
-\* an earlier rule does not lower the shortage of a later rule - a phantom shortage that copies nothing.)
-Replicates(d) == \E k \in 1..Len(d.tasks) : Len(d.tasks[k].nodes) > 0
-Quiet(hs) == \A n \in hs : LET d == Decide27(n, hs, {}, {}) IN ~Replicates(d) /\ d.del = "none"
-NoTasks(hs) == \A n \in hs : ~Replicates(Decide27(n, hs, {}, {}))
-u\* a check "replicates" when it hands the replicator a task with at least one candidate node. (With overlapping
-\* rules the code as found keeps calling the replicator with an EMPTY candidate list: a holder remembered from
-\* an earlier rule does not lower the shortage of a later rule - a phantom shortage that copies nothing.)
-Replicates(d) == \E k \in 1..Len(d.tasks) : Len(d.tasks[k].nodes) > 0
-Quiet(hs) == \A n \in hs : LET d == Decide27(n, hs, {}, {}) IN ~Replicates(d) /\ d.del = "none"
-NoTasks(hs) == \A n \in hs : ~Replicates(Decide27(n, hs, {}, {}))
-s\* a check "replicates" when it hands the replicator a task with at least one candidate node. (With overlapping
-\* rules the code as found keeps calling the replicator with an EMPTY candidate list: a holder remembered from
-\* an earlier rule does not lower the shortage of a later rule - a phantom shortage that copies nothing.)
-Replicates(d) == \E k \in 1..Len(d.tasks) : Len(d.tasks[k].nodes) > 0
-Quiet(hs) == \A n \in hs : LET d == Decide27(n, hs, {}, {}) IN ~Replicates(d) /\ d.del = "none"
-NoTasks(hs) == \A n \in hs : ~Replicates(Decide27(n, hs, {}, {}))
-e\* a check "replicates" when it hands the replicator a task with at least one candidate node. (With overlapping
-\* rules the code as found keeps calling the replicator with an EMPTY candidate list: a holder remembered from
-\* an earlier rule does not lower the shortage of a later rule - a phantom shortage that copies nothing.)
-Replicates(d) == \E k \in 1..Len(d.tasks) : Len(d.tasks[k].nodes) > 0
-Quiet(hs) == \A n \in hs : LET d == Decide27(n, hs, {}, {}) IN ~Replicates(d) /\ d.del = "none"
-NoTasks(hs) == \A n \in hs : ~Replicates(Decide27(n, hs, {}, {}))
-)\* a check "replicates" when it hands the replicator a task with at least one candidate node. (With overlapping
-\* rules the code as found keeps calling the replicator with an EMPTY candidate list: a holder remembered from
-\* an earlier rule does not lower the shortage of a later rule - a phantom shortage that copies nothing.)
-Replicates(d) == \E k \in 1..Len(d.tasks) : Len(d.tasks[k].nodes) > 0
-Quiet(hs) == \A n \in hs : LET d == Decide27(n, hs, {}, {}) IN ~Replicates(d) /\ d.del = "none"
-NoTasks(hs) == \A n \in hs : ~Replicates(Decide27(n, hs, {}, {}))
- \* a check "replicates" when it hands the replicator a task with at least one candidate node. (With overlapping
-\* rules the code as found keeps calling the replicator with an EMPTY candidate list: a holder remembered from
-\* an earlier rule does not lower the shortage of a later rule - a phantom shortage that copies nothing.)
-Replicates(d) == \E k \in 1..Len(d.tasks) : Len(d.tasks[k].nodes) > 0
-Quiet(hs) == \A n \in hs : LET d == Decide27(n, hs, {}, {}) IN ~Replicates(d) /\ d.del = "none"
-NoTasks(hs) == \A n \in hs : ~Replicates(Decide27(n, hs, {}, {}))
-=\* a check "replicates" when it hands the replicator a task with at least one candidate node. (With overlapping
-\* rules the code as found keeps calling the replicator with an EMPTY candidate list: a holder remembered from
-\* an earlier rule does not lower the shortage of a later rule - a phantom shortage that copies nothing.)
-Replicates(d) == \E k \in 1..Len(d.tasks) : Len(d.tasks[k].nodes) > 0
-Quiet(hs) == \A n \in hs : LET d == Decide27(n, hs, {}, {}) IN ~Replicates(d) /\ d.del = "none"
-NoTasks(hs) == \A n \in hs : ~Replicates(Decide27(n, hs, {}, {}))
-=\* a check "replicates" when it hands the replicator a task with at least one candidate node. (With overlapping
-\* rules the code as found keeps calling the replicator with an EMPTY candidate list: a holder remembered from
-\* an earlier rule does not lower the shortage of a later rule - a phantom shortage that copies nothing.)
-Replicates(d) == \E k \in 1..Len(d.tasks) : Len(d.tasks[k].nodes) > 0
-Quiet(hs) == \A n \in hs : LET d == Decide27(n, hs, {}, {}) IN ~Replicates(d) /\ d.del = "none"
-NoTasks(hs) == \A n \in hs : ~Replicates(Decide27(n, hs, {}, {}))
-
-\* a check "replicates" when it hands the replicator a task with at least one candidate node. (With overlapping
-\* rules the code as found keeps calling the replicator with an EMPTY candidate list: a holder remembered from
-\* an earlier rule does not lower the shortage of a later rule - a phantom shortage that copies nothing.)
-Replicates(d) == \E k \in 1..Len(d.tasks) : Len(d.tasks[k].nodes) > 0
-Quiet(hs) == \A n \in hs : LET d == Decide27(n, hs, {}, {}) IN ~Replicates(d) /\ d.del = "none"
-NoTasks(hs) == \A n \in hs : ~Replicates(Decide27(n, hs, {}, {}))
- \* a check "replicates" when it hands the replicator a task with at least one candidate node. (With overlapping
-\* rules the code as found keeps calling the replicator with an EMPTY candidate list: a holder remembered from
-\* an earlier rule does not lower the shortage of a later rule - a phantom shortage that copies nothing.)
-Replicates(d) == \E k \in 1..Len(d.tasks) : Len(d.tasks[k].nodes) > 0
-Quiet(hs) == \A n \in hs : LET d == Decide27(n, hs, {}, {}) IN ~Replicates(d) /\ d.del = "none"
-NoTasks(hs) == \A n \in hs : ~Replicates(Decide27(n, hs, {}, {}))
- \* a check "replicates" when it hands the replicator a task with at least one candidate node. (With overlapping
-\* rules the code as found keeps calling the replicator with an EMPTY candidate list: a holder remembered from
-\* an earlier rule does not lower the shortage of a later rule - a phantom shortage that copies nothing.)
-Replicates(d) == \E k \in 1..Len(d.tasks) : Len(d.tasks[k].nodes) > 0
-Quiet(hs) == \A n \in hs : LET d == Decide27(n, hs, {}, {}) IN ~Replicates(d) /\ d.del = "none"
-NoTasks(hs) == \A n \in hs : ~Replicates(Decide27(n, hs, {}, {}))
-/\* a check "replicates" when it hands the replicator a task with at least one candidate node. (With overlapping
-\* rules the code as found keeps calling the replicator with an EMPTY candidate list: a holder remembered from
-\* an earlier rule does not lower the shortage of a later rule - a phantom shortage that copies nothing.)
-Replicates(d) == \E k \in 1..Len(d.tasks) : Len(d.tasks[k].nodes) > 0
-Quiet(hs) == \A n \in hs : LET d == Decide27(n, hs, {}, {}) IN ~Replicates(d) /\ d.del = "none"
-NoTasks(hs) == \A n \in hs : ~Replicates(Decide27(n, hs, {}, {}))
-\\* a check "replicates" when it hands the replicator a task with at least one candidate node. (With overlapping
-\* rules the code as found keeps calling the replicator with an EMPTY candidate list: a holder remembered from
-\* an earlier rule does not lower the shortage of a later rule - a phantom shortage that copies nothing.)
-Replicates(d) == \E k \in 1..Len(d.tasks) : Len(d.tasks[k].nodes) > 0
-Quiet(hs) == \A n \in hs : LET d == Decide27(n, hs, {}, {}) IN ~Replicates(d) /\ d.del = "none"
-NoTasks(hs) == \A n \in hs : ~Replicates(Decide27(n, hs, {}, {}))
- \* a check "replicates" when it hands the replicator a task with at least one candidate node. (With overlapping
-\* rules the code as found keeps calling the replicator with an EMPTY candidate list: a holder remembered from
-\* an earlier rule does not lower the shortage of a later rule - a phantom shortage that copies nothing.)
-Replicates(d) == \E k \in 1..Len(d.tasks) : Len(d.tasks[k].nodes) > 0
-Quiet(hs) == \A n \in hs : LET d == Decide27(n, hs, {}, {}) IN ~Replicates(d) /\ d.del = "none"
-NoTasks(hs) == \A n \in hs : ~Replicates(Decide27(n, hs, {}, {}))
-n\* a check "replicates" when it hands the replicator a task with at least one candidate node. (With overlapping
-\* rules the code as found keeps calling the replicator with an EMPTY candidate list: a holder remembered from
-\* an earlier rule does not lower the shortage of a later rule - a phantom shortage that copies nothing.)
-Replicates(d) == \E k \in 1..Len(d.tasks) : Len(d.tasks[k].nodes) > 0
-Quiet(hs) == \A n \in hs : LET d == Decide27(n, hs, {}, {}) IN ~Replicates(d) /\ d.del = "none"
-NoTasks(hs) == \A n \in hs : ~Replicates(Decide27(n, hs, {}, {}))
- \* a check "replicates" when it hands the replicator a task with at least one candidate node. (With overlapping
-\* rules the code as found keeps calling the replicator with an EMPTY candidate list: a holder remembered from
-\* an earlier rule does not lower the shortage of a later rule - a phantom shortage that copies nothing.)
-Replicates(d) == \E k \in 1..Len(d.tasks) : Len(d.tasks[k].nodes) > 0
-Quiet(hs) == \A n \in hs : LET d == Decide27(n, hs, {}, {}) IN ~Replicates(d) /\ d.del = "none"
-NoTasks(hs) == \A n \in hs : ~Replicates(Decide27(n, hs, {}, {}))
-\\* a check "replicates" when it hands the replicator a task with at least one candidate node. (With overlapping
-\* rules the code as found keeps calling the replicator with an EMPTY candidate list: a holder remembered from
-\* an earlier rule does not lower the shortage of a later rule - a phantom shortage that copies nothing.)
-Replicates(d) == \E k \in 1..Len(d.tasks) : Len(d.tasks[k].nodes) > 0
-Quiet(hs) == \A n \in hs : LET d == Decide27(n, hs, {}, {}) IN ~Replicates(d) /\ d.del = "none"
-NoTasks(hs) == \A n \in hs : ~Replicates(Decide27(n, hs, {}, {}))
-i\* a check "replicates" when it hands the replicator a task with at least one candidate node. (With overlapping
-\* rules the code as found keeps calling the replicator with an EMPTY candidate list: a holder remembered from
-\* an earlier rule does not lower the shortage of a later rule - a phantom shortage that copies nothing.)
-Replicates(d) == \E k \in 1..Len(d.tasks) : Len(d.tasks[k].nodes) > 0
-Quiet(hs) == \A n \in hs : LET d == Decide27(n, hs, {}, {}) IN ~Replicates(d) /\ d.del = "none"
-NoTasks(hs) == \A n \in hs : ~Replicates(Decide27(n, hs, {}, {}))
-n\* a check "replicates" when it hands the replicator a task with at least one candidate node. (With overlapping
-\* rules the code as found keeps calling the replicator with an EMPTY candidate list: a holder remembered from
-\* an earlier rule does not lower the shortage of a later rule - a phantom shortage that copies nothing.)
-Replicates(d) == \E k \in 1..Len(d.tasks) : Len(d.tasks[k].nodes) > 0
-Quiet(hs) == \A n \in hs : LET d == Decide27(n, hs, {}, {}) IN ~Replicates(d) /\ d.del = "none"
-NoTasks(hs) == \A n \in hs : ~Replicates(Decide27(n, hs, {}, {}))
- \* a check "replicates" when it hands the replicator a task with at least one candidate node. (With overlapping
-\* rules the code as found keeps calling the replicator with an EMPTY candidate list: a holder remembered from
-\* an earlier rule does not lower the shortage of a later rule - a phantom shortage that copies nothing.)
-Replicates(d) == \E k \in 1..Len(d.tasks) : Len(d.tasks[k].nodes) > 0
-Quiet(hs) == \A n \in hs : LET d == Decide27(n, hs, {}, {}) IN ~Replicates(d) /\ d.del = "none"
-NoTasks(hs) == \A n \in hs : ~Replicates(Decide27(n, hs, {}, {}))
-h\* a check "replicates" when it hands the replicator a task with at least one candidate node. (With overlapping
-\* rules the code as found keeps calling the replicator with an EMPTY candidate list: a holder remembered from
-\* an earlier rule does not lower the shortage of a later rule - a phantom shortage that copies nothing.)
-Replicates(d) == \E k \in 1..Len(d.tasks) : Len(d.tasks[k].nodes) > 0
-Quiet(hs) == \A n \in hs : LET d == Decide27(n, hs, {}, {}) IN ~Replicates(d) /\ d.del = "none"
-NoTasks(hs) == \A n \in hs : ~Replicates(Decide27(n, hs, {}, {}))
-o\* a check "replicates" when it hands the replicator a task with at least one candidate node. (With overlapping
-\* rules the code as found keeps calling the replicator with an EMPTY candidate list: a holder remembered from
-\* an earlier rule does not lower the shortage of a later rule - a phantom shortage that copies nothing.)
-Replicates(d) == \E k \in 1..Len(d.tasks) : Len(d.tasks[k].nodes) > 0
-Quiet(hs) == \A n \in hs : LET d == Decide27(n, hs, {}, {}) IN ~Replicates(d) /\ d.del = "none"
-NoTasks(hs) == \A n \in hs : ~Replicates(Decide27(n, hs, {}, {}))
-l\* a check "replicates" when it hands the replicator a task with at least one candidate node. (With overlapping
-\* rules the code as found keeps calling the replicator with an EMPTY candidate list: a holder remembered from
-\* an earlier rule does not lower the shortage of a later rule - a phantom shortage that copies nothing.)
-Replicates(d) == \E k \in 1..Len(d.tasks) : Len(d.tasks[k].nodes) > 0
-Quiet(hs) == \A n \in hs : LET d == Decide27(n, hs, {}, {}) IN ~Replicates(d) /\ d.del = "none"
-NoTasks(hs) == \A n \in hs : ~Replicates(Decide27(n, hs, {}, {}))
-d\* a check "replicates" when it hands the replicator a task with at least one candidate node. (With overlapping
-\* rules the code as found keeps calling the replicator with an EMPTY candidate list: a holder remembered from
-\* an earlier rule does not lower the shortage of a later rule - a phantom shortage that copies nothing.)
-Replicates(d) == \E k \in 1..Len(d.tasks) : Len(d.tasks[k].nodes) > 0
-Quiet(hs) == \A n \in hs : LET d == Decide27(n, hs, {}, {}) IN ~Replicates(d) /\ d.del = "none"
-NoTasks(hs) == \A n \in hs : ~Replicates(Decide27(n, hs, {}, {}))
-e\* a check "replicates" when it hands the replicator a task with at least one candidate node. (With overlapping
-\* rules the code as found keeps calling the replicator with an EMPTY candidate list: a holder remembered from
-\* an earlier rule does not lower the shortage of a later rule - a phantom shortage that copies nothing.)
-Replicates(d) == \E k \in 1..Len(d.tasks) : Len(d.tasks[k].nodes) > 0
-Quiet(hs) == \A n \in hs : LET d == Decide27(n, hs, {}, {}) IN ~Replicates(d) /\ d.del = "none"
-NoTasks(hs) == \A n \in hs : ~Replicates(Decide27(n, hs, {}, {}))
-r\* a check "replicates" when it hands the replicator a task with at least one candidate node. (With overlapping
-\* rules the code as found keeps calling the replicator with an EMPTY candidate list: a holder remembered from
-\* an earlier rule does not lower the shortage of a later rule - a phantom shortage that copies nothing.)
-Replicates(d) == \E k \in 1..Len(d.tasks) : Len(d.tasks[k].nodes) > 0
-Quiet(hs) == \A n \in hs : LET d == Decide27(n, hs, {}, {}) IN ~Replicates(d) /\ d.del = "none"
-NoTasks(hs) == \A n \in hs : ~Replicates(Decide27(n, hs, {}, {}))
-s\* a check "replicates" when it hands the replicator a task with at least one candidate node. (With overlapping
-\* rules the code as found keeps calling the replicator with an EMPTY candidate list: a holder remembered from
-\* an earlier rule does not lower the shortage of a later rule - a phantom shortage that copies nothing.)
-Replicates(d) == \E k \in 1..Len(d.tasks) : Len(d.tasks[k].nodes) > 0
-Quiet(hs) == \A n \in hs : LET d == Decide27(n, hs, {}, {}) IN ~Replicates(d) /\ d.del = "none"
-NoTasks(hs) == \A n \in hs : ~Replicates(Decide27(n, hs, {}, {}))
- \* a check "replicates" when it hands the replicator a task with at least one candidate node. (With overlapping
-\* rules the code as found keeps calling the replicator with an EMPTY candidate list: a holder remembered from
-\* an earlier rule does not lower the shortage of a later rule - a phantom shortage that copies nothing.)
-Replicates(d) == \E k \in 1..Len(d.tasks) : Len(d.tasks[k].nodes) > 0
-Quiet(hs) == \A n \in hs : LET d == Decide27(n, hs, {}, {}) IN ~Replicates(d) /\ d.del = "none"
-NoTasks(hs) == \A n \in hs : ~Replicates(Decide27(n, hs, {}, {}))
-/\* a check "replicates" when it hands the replicator a task with at least one candidate node. (With overlapping
-\* rules the code as found keeps calling the replicator with an EMPTY candidate list: a holder remembered from
-\* an earlier rule does not lower the shortage of a later rule - a phantom shortage that copies nothing.)
-Replicates(d) == \E k \in 1..Len(d.tasks) : Len(d.tasks[k].nodes) > 0
-Quiet(hs) == \A n \in hs : LET d == Decide27(n, hs, {}, {}) IN ~Replicates(d) /\ d.del = "none"
-NoTasks(hs) == \A n \in hs : ~Replicates(Decide27(n, hs, {}, {}))
-\\* a check "replicates" when it hands the replicator a task with at least one candidate node. (With overlapping
-\* rules the code as found keeps calling the replicator with an EMPTY candidate list: a holder remembered from
-\* an earlier rule does not lower the shortage of a later rule - a phantom shortage that copies nothing.)
-Replicates(d) == \E k \in 1..Len(d.tasks) : Len(d.tasks[k].nodes) > 0
-Quiet(hs) == \A n \in hs : LET d == Decide27(n, hs, {}, {}) IN ~Replicates(d) /\ d.del = "none"
-NoTasks(hs) == \A n \in hs : ~Replicates(Decide27(n, hs, {}, {}))
- \* a check "replicates" when it hands the replicator a task with at least one candidate node. (With overlapping
-\* rules the code as found keeps calling the replicator with an EMPTY candidate list: a holder remembered from
-\* an earlier rule does not lower the shortage of a later rule - a phantom shortage that copies nothing.)
-Replicates(d) == \E k \in 1..Len(d.tasks) : Len(d.tasks[k].nodes) > 0
-Quiet(hs) == \A n \in hs : LET d == Decide27(n, hs, {}, {}) IN ~Replicates(d) /\ d.del = "none"
-NoTasks(hs) == \A n \in hs : ~Replicates(Decide27(n, hs, {}, {}))
-n\* a check "replicates" when it hands the replicator a task with at least one candidate node. (With overlapping
-\* rules the code as found keeps calling the replicator with an EMPTY candidate list: a holder remembered from
-\* an earlier rule does not lower the shortage of a later rule - a phantom shortage that copies nothing.)
-Replicates(d) == \E k \in 1..Len(d.tasks) : Len(d.tasks[k].nodes) > 0
-Quiet(hs) == \A n \in hs : LET d == Decide27(n, hs, {}, {}) IN ~Replicates(d) /\ d.del = "none"
-NoTasks(hs) == \A n \in hs : ~Replicates(Decide27(n, hs, {}, {}))
- \* a check "replicates" when it hands the replicator a task with at least one candidate node. (With overlapping
-\* rules the code as found keeps calling the replicator with an EMPTY candidate list: a holder remembered from
-\* an earlier rule does not lower the shortage of a later rule - a phantom shortage that copies nothing.)
-Replicates(d) == \E k \in 1..Len(d.tasks) : Len(d.tasks[k].nodes) > 0
-Quiet(hs) == \A n \in hs : LET d == Decide27(n, hs, {}, {}) IN ~Replicates(d) /\ d.del = "none"
-NoTasks(hs) == \A n \in hs : ~Replicates(Decide27(n, hs, {}, {}))
-\\* a check "replicates" when it hands the replicator a task with at least one candidate node. (With overlapping
-\* rules the code as found keeps calling the replicator with an EMPTY candidate list: a holder remembered from
-\* an earlier rule does not lower the shortage of a later rule - a phantom shortage that copies nothing.)
-Replicates(d) == \E k \in 1..Len(d.tasks) : Len(d.tasks[k].nodes) > 0
-Quiet(hs) == \A n \in hs : LET d == Decide27(n, hs, {}, {}) IN ~Replicates(d) /\ d.del = "none"
-NoTasks(hs) == \A n \in hs : ~Replicates(Decide27(n, hs, {}, {}))
-n\* a check "replicates" when it hands the replicator a task with at least one candidate node. (With overlapping
-\* rules the code as found keeps calling the replicator with an EMPTY candidate list: a holder remembered from
-\* an earlier rule does not lower the shortage of a later rule - a phantom shortage that copies nothing.)
-Replicates(d) == \E k \in 1..Len(d.tasks) : Len(d.tasks[k].nodes) > 0
-Quiet(hs) == \A n \in hs : LET d == Decide27(n, hs, {}, {}) IN ~Replicates(d) /\ d.del = "none"
-NoTasks(hs) == \A n \in hs : ~Replicates(Decide27(n, hs, {}, {}))
-o\* a check "replicates" when it hands the replicator a task with at least one candidate node. (With overlapping
-\* rules the code as found keeps calling the replicator with an EMPTY candidate list: a holder remembered from
-\* an earlier rule does not lower the shortage of a later rule - a phantom shortage that copies nothing.)
-Replicates(d) == \E k \in 1..Len(d.tasks) : Len(d.tasks[k].nodes) > 0
-Quiet(hs) == \A n \in hs : LET d == Decide27(n, hs, {}, {}) IN ~Replicates(d) /\ d.del = "none"
-NoTasks(hs) == \A n \in hs : ~Replicates(Decide27(n, hs, {}, {}))
-t\* a check "replicates" when it hands the replicator a task with at least one candidate node. (With overlapping
-\* rules the code as found keeps calling the replicator with an EMPTY candidate list: a holder remembered from
-\* an earlier rule does not lower the shortage of a later rule - a phantom shortage that copies nothing.)
-Replicates(d) == \E k \in 1..Len(d.tasks) : Len(d.tasks[k].nodes) > 0
-Quiet(hs) == \A n \in hs : LET d == Decide27(n, hs, {}, {}) IN ~Replicates(d) /\ d.del = "none"
-NoTasks(hs) == \A n \in hs : ~Replicates(Decide27(n, hs, {}, {}))
-i\* a check "replicates" when it hands the replicator a task with at least one candidate node. (With overlapping
-\* rules the code as found keeps calling the replicator with an EMPTY candidate list: a holder remembered from
-\* an earlier rule does not lower the shortage of a later rule - a phantom shortage that copies nothing.)
-Replicates(d) == \E k \in 1..Len(d.tasks) : Len(d.tasks[k].nodes) > 0
-Quiet(hs) == \A n \in hs : LET d == Decide27(n, hs, {}, {}) IN ~Replicates(d) /\ d.del = "none"
-NoTasks(hs) == \A n \in hs : ~Replicates(Decide27(n, hs, {}, {}))
-n\* a check "replicates" when it hands the replicator a task with at least one candidate node. (With overlapping
-\* rules the code as found keeps calling the replicator with an EMPTY candidate list: a holder remembered from
-\* an earlier rule does not lower the shortage of a later rule - a phantom shortage that copies nothing.)
-Replicates(d) == \E k \in 1..Len(d.tasks) : Len(d.tasks[k].nodes) > 0
-Quiet(hs) == \A n \in hs : LET d == Decide27(n, hs, {}, {}) IN ~Replicates(d) /\ d.del = "none"
-NoTasks(hs) == \A n \in hs : ~Replicates(Decide27(n, hs, {}, {}))
- \* a check "replicates" when it hands the replicator a task with at least one candidate node. (With overlapping
-\* rules the code as found keeps calling the replicator with an EMPTY candidate list: a holder remembered from
-\* an earlier rule does not lower the shortage of a later rule - a phantom shortage that copies nothing.)
-Replicates(d) == \E k \in 1..Len(d.tasks) : Len(d.tasks[k].nodes) > 0
-Quiet(hs) == \A n \in hs : LET d == Decide27(n, hs, {}, {}) IN ~Replicates(d) /\ d.del = "none"
-NoTasks(hs) == \A n \in hs : ~Replicates(Decide27(n, hs, {}, {}))
-d\* a check "replicates" when it hands the replicator a task with at least one candidate node. (With overlapping
-\* rules the code as found keeps calling the replicator with an EMPTY candidate list: a holder remembered from
-\* an earlier rule does not lower the shortage of a later rule - a phantom shortage that copies nothing.)
-Replicates(d) == \E k \in 1..Len(d.tasks) : Len(d.tasks[k].nodes) > 0
-Quiet(hs) == \A n \in hs : LET d == Decide27(n, hs, {}, {}) IN ~Replicates(d) /\ d.del = "none"
-NoTasks(hs) == \A n \in hs : ~Replicates(Decide27(n, hs, {}, {}))
-o\* a check "replicates" when it hands the replicator a task with at least one candidate node. (With overlapping
-\* rules the code as found keeps calling the replicator with an EMPTY candidate list: a holder remembered from
-\* an earlier rule does not lower the shortage of a later rule - a phantom shortage that copies nothing.)
-Replicates(d) == \E k \in 1..Len(d.tasks) : Len(d.tasks[k].nodes) > 0
-Quiet(hs) == \A n \in hs : LET d == Decide27(n, hs, {}, {}) IN ~Replicates(d) /\ d.del = "none"
-NoTasks(hs) == \A n \in hs : ~Replicates(Decide27(n, hs, {}, {}))
-w\* a check "replicates" when it hands the replicator a task with at least one candidate node. (With overlapping
-\* rules the code as found keeps calling the replicator with an EMPTY candidate list: a holder remembered from
-\* an earlier rule does not lower the shortage of a later rule - a phantom shortage that copies nothing.)
-Replicates(d) == \E k \in 1..Len(d.tasks) : Len(d.tasks[k].nodes) > 0
-Quiet(hs) == \A n \in hs : LET d == Decide27(n, hs, {}, {}) IN ~Replicates(d) /\ d.del = "none"
-NoTasks(hs) == \A n \in hs : ~Replicates(Decide27(n, hs, {}, {}))
-n\* a check "replicates" when it hands the replicator a task with at least one candidate node. (With overlapping
-\* rules the code as found keeps calling the replicator with an EMPTY candidate list: a holder remembered from
-\* an earlier rule does not lower the shortage of a later rule - a phantom shortage that copies nothing.)
-Replicates(d) == \E k \in 1..Len(d.tasks) : Len(d.tasks[k].nodes) > 0
-Quiet(hs) == \A n \in hs : LET d == Decide27(n, hs, {}, {}) IN ~Replicates(d) /\ d.del = "none"
-NoTasks(hs) == \A n \in hs : ~Replicates(Decide27(n, hs, {}, {}))
-
-\* a check "replicates" when it hands the replicator a task with at least one candidate node. (With overlapping
-\* rules the code as found keeps calling the replicator with an EMPTY candidate list: a holder remembered from
-\* an earlier rule does not lower the shortage of a later rule - a phantom shortage that copies nothing.)
-Replicates(d) == \E k \in 1..Len(d.tasks) : Len(d.tasks[k].nodes) > 0
-Quiet(hs) == \A n \in hs : LET d == Decide27(n, hs, {}, {}) IN ~Replicates(d) /\ d.del = "none"
-NoTasks(hs) == \A n \in hs : ~Replicates(Decide27(n, hs, {}, {}))
- \* a check "replicates" when it hands the replicator a task with at least one candidate node. (With overlapping
-\* rules the code as found keeps calling the replicator with an EMPTY candidate list: a holder remembered from
-\* an earlier rule does not lower the shortage of a later rule - a phantom shortage that copies nothing.)
-Replicates(d) == \E k \in 1..Len(d.tasks) : Len(d.tasks[k].nodes) > 0
-Quiet(hs) == \A n \in hs : LET d == Decide27(n, hs, {}, {}) IN ~Replicates(d) /\ d.del = "none"
-NoTasks(hs) == \A n \in hs : ~Replicates(Decide27(n, hs, {}, {}))
- \* a check "replicates" when it hands the replicator a task with at least one candidate node. (With overlapping
-\* rules the code as found keeps calling the replicator with an EMPTY candidate list: a holder remembered from
-\* an earlier rule does not lower the shortage of a later rule - a phantom shortage that copies nothing.)
-Replicates(d) == \E k \in 1..Len(d.tasks) : Len(d.tasks[k].nodes) > 0
-Quiet(hs) == \A n \in hs : LET d == Decide27(n, hs, {}, {}) IN ~Replicates(d) /\ d.del = "none"
-NoTasks(hs) == \A n \in hs : ~Replicates(Decide27(n, hs, {}, {}))
-/\* a check "replicates" when it hands the replicator a task with at least one candidate node. (With overlapping
-\* rules the code as found keeps calling the replicator with an EMPTY candidate list: a holder remembered from
-\* an earlier rule does not lower the shortage of a later rule - a phantom shortage that copies nothing.)
-Replicates(d) == \E k \in 1..Len(d.tasks) : Len(d.tasks[k].nodes) > 0
-Quiet(hs) == \A n \in hs : LET d == Decide27(n, hs, {}, {}) IN ~Replicates(d) /\ d.del = "none"
-NoTasks(hs) == \A n \in hs : ~Replicates(Decide27(n, hs, {}, {}))
-\\* a check "replicates" when it hands the replicator a task with at least one candidate node. (With overlapping
-\* rules the code as found keeps calling the replicator with an EMPTY candidate list: a holder remembered from
-\* an earlier rule does not lower the shortage of a later rule - a phantom shortage that copies nothing.)
-Replicates(d) == \E k \in 1..Len(d.tasks) : Len(d.tasks[k].nodes) > 0
-Quiet(hs) == \A n \in hs : LET d == Decide27(n, hs, {}, {}) IN ~Replicates(d) /\ d.del = "none"
-NoTasks(hs) == \A n \in hs : ~Replicates(Decide27(n, hs, {}, {}))
- \* a check "replicates" when it hands the replicator a task with at least one candidate node. (With overlapping
-\* rules the code as found keeps calling the replicator with an EMPTY candidate list: a holder remembered from
-\* an earlier rule does not lower the shortage of a later rule - a phantom shortage that copies nothing.)
-Replicates(d) == \E k \in 1..Len(d.tasks) : Len(d.tasks[k].nodes) > 0
-Quiet(hs) == \A n \in hs : LET d == Decide27(n, hs, {}, {}) IN ~Replicates(d) /\ d.del = "none"
-NoTasks(hs) == \A n \in hs : ~Replicates(Decide27(n, hs, {}, {}))
-L\* a check "replicates" when it hands the replicator a task with at least one candidate node. (With overlapping
-\* rules the code as found keeps calling the replicator with an EMPTY candidate list: a holder remembered from
-\* an earlier rule does not lower the shortage of a later rule - a phantom shortage that copies nothing.)
-Replicates(d) == \E k \in 1..Len(d.tasks) : Len(d.tasks[k].nodes) > 0
-Quiet(hs) == \A n \in hs : LET d == Decide27(n, hs, {}, {}) IN ~Replicates(d) /\ d.del = "none"
-NoTasks(hs) == \A n \in hs : ~Replicates(Decide27(n, hs, {}, {}))
-E\* a check "replicates" when it hands the replicator a task with at least one candidate node. (With overlapping
-\* rules the code as found keeps calling the replicator with an EMPTY candidate list: a holder remembered from
-\* an earlier rule does not lower the shortage of a later rule - a phantom shortage that copies nothing.)
-Replicates(d) == \E k \in 1..Len(d.tasks) : Len(d.tasks[k].nodes) > 0
-Quiet(hs) == \A n \in hs : LET d == Decide27(n, hs, {}, {}) IN ~Replicates(d) /\ d.del = "none"
-NoTasks(hs) == \A n \in hs : ~Replicates(Decide27(n, hs, {}, {}))
-T\* a check "replicates" when it hands the replicator a task with at least one candidate node. (With overlapping
-\* rules the code as found keeps calling the replicator with an EMPTY candidate list: a holder remembered from
-\* an earlier rule does not lower the shortage of a later rule - a phantom shortage that copies nothing.)
-Replicates(d) == \E k \in 1..Len(d.tasks) : Len(d.tasks[k].nodes) > 0
-Quiet(hs) == \A n \in hs : LET d == Decide27(n, hs, {}, {}) IN ~Replicates(d) /\ d.del = "none"
-NoTasks(hs) == \A n \in hs : ~Replicates(Decide27(n, hs, {}, {}))
- \* a check "replicates" when it hands the replicator a task with at least one candidate node. (With overlapping
-\* rules the code as found keeps calling the replicator with an EMPTY candidate list: a holder remembered from
-\* an earlier rule does not lower the shortage of a later rule - a phantom shortage that copies nothing.)
-Replicates(d) == \E k \in 1..Len(d.tasks) : Len(d.tasks[k].nodes) > 0
-Quiet(hs) == \A n \in hs : LET d == Decide27(n, hs, {}, {}) IN ~Replicates(d) /\ d.del = "none"
-NoTasks(hs) == \A n \in hs : ~Replicates(Decide27(n, hs, {}, {}))
-d\* a check "replicates" when it hands the replicator a task with at least one candidate node. (With overlapping
-\* rules the code as found keeps calling the replicator with an EMPTY candidate list: a holder remembered from
-\* an earlier rule does not lower the shortage of a later rule - a phantom shortage that copies nothing.)
-Replicates(d) == \E k \in 1..Len(d.tasks) : Len(d.tasks[k].nodes) > 0
-Quiet(hs) == \A n \in hs : LET d == Decide27(n, hs, {}, {}) IN ~Replicates(d) /\ d.del = "none"
-NoTasks(hs) == \A n \in hs : ~Replicates(Decide27(n, hs, {}, {}))
- \* a check "replicates" when it hands the replicator a task with at least one candidate node. (With overlapping
-\* rules the code as found keeps calling the replicator with an EMPTY candidate list: a holder remembered from
-\* an earlier rule does not lower the shortage of a later rule - a phantom shortage that copies nothing.)
-Replicates(d) == \E k \in 1..Len(d.tasks) : Len(d.tasks[k].nodes) > 0
-Quiet(hs) == \A n \in hs : LET d == Decide27(n, hs, {}, {}) IN ~Replicates(d) /\ d.del = "none"
-NoTasks(hs) == \A n \in hs : ~Replicates(Decide27(n, hs, {}, {}))
-=\* a check "replicates" when it hands the replicator a task with at least one candidate node. (With overlapping
-\* rules the code as found keeps calling the replicator with an EMPTY candidate list: a holder remembered from
-\* an earlier rule does not lower the shortage of a later rule - a phantom shortage that copies nothing.)
-Replicates(d) == \E k \in 1..Len(d.tasks) : Len(d.tasks[k].nodes) > 0
-Quiet(hs) == \A n \in hs : LET d == Decide27(n, hs, {}, {}) IN ~Replicates(d) /\ d.del = "none"
-NoTasks(hs) == \A n \in hs : ~Replicates(Decide27(n, hs, {}, {}))
-=\* a check "replicates" when it hands the replicator a task with at least one candidate node. (With overlapping
-\* rules the code as found keeps calling the replicator with an EMPTY candidate list: a holder remembered from
-\* an earlier rule does not lower the shortage of a later rule - a phantom shortage that copies nothing.)
-Replicates(d) == \E k \in 1..Len(d.tasks) : Len(d.tasks[k].nodes) > 0
-Quiet(hs) == \A n \in hs : LET d == Decide27(n, hs, {}, {}) IN ~Replicates(d) /\ d.del = "none"
-NoTasks(hs) == \A n \in hs : ~Replicates(Decide27(n, hs, {}, {}))
- \* a check "replicates" when it hands the replicator a task with at least one candidate node. (With overlapping
-\* rules the code as found keeps calling the replicator with an EMPTY candidate list: a holder remembered from
-\* an earlier rule does not lower the shortage of a later rule - a phantom shortage that copies nothing.)
-Replicates(d) == \E k \in 1..Len(d.tasks) : Len(d.tasks[k].nodes) > 0
-Quiet(hs) == \A n \in hs : LET d == Decide27(n, hs, {}, {}) IN ~Replicates(d) /\ d.del = "none"
-NoTasks(hs) == \A n \in hs : ~Replicates(Decide27(n, hs, {}, {}))
-D\* a check "replicates" when it hands the replicator a task with at least one candidate node. (With overlapping
-\* rules the code as found keeps calling the replicator with an EMPTY candidate list: a holder remembered from
-\* an earlier rule does not lower the shortage of a later rule - a phantom shortage that copies nothing.)
-Replicates(d) == \E k \in 1..Len(d.tasks) : Len(d.tasks[k].nodes) > 0
-Quiet(hs) == \A n \in hs : LET d == Decide27(n, hs, {}, {}) IN ~Replicates(d) /\ d.del = "none"
-NoTasks(hs) == \A n \in hs : ~Replicates(Decide27(n, hs, {}, {}))
-e\* a check "replicates" when it hands the replicator a task with at least one candidate node. (With overlapping
-\* rules the code as found keeps calling the replicator with an EMPTY candidate list: a holder remembered from
-\* an earlier rule does not lower the shortage of a later rule - a phantom shortage that copies nothing.)
-Replicates(d) == \E k \in 1..Len(d.tasks) : Len(d.tasks[k].nodes) > 0
-Quiet(hs) == \A n \in hs : LET d == Decide27(n, hs, {}, {}) IN ~Replicates(d) /\ d.del = "none"
-NoTasks(hs) == \A n \in hs : ~Replicates(Decide27(n, hs, {}, {}))
-c\* a check "replicates" when it hands the replicator a task with at least one candidate node. (With overlapping
-\* rules the code as found keeps calling the replicator with an EMPTY candidate list: a holder remembered from
-\* an earlier rule does not lower the shortage of a later rule - a phantom shortage that copies nothing.)
-Replicates(d) == \E k \in 1..Len(d.tasks) : Len(d.tasks[k].nodes) > 0
-Quiet(hs) == \A n \in hs : LET d == Decide27(n, hs, {}, {}) IN ~Replicates(d) /\ d.del = "none"
-NoTasks(hs) == \A n \in hs : ~Replicates(Decide27(n, hs, {}, {}))
-i\* a check "replicates" when it hands the replicator a task with at least one candidate node. (With overlapping
-\* rules the code as found keeps calling the replicator with an EMPTY candidate list: a holder remembered from
-\* an earlier rule does not lower the shortage of a later rule - a phantom shortage that copies nothing.)
-Replicates(d) == \E k \in 1..Len(d.tasks) : Len(d.tasks[k].nodes) > 0
-Quiet(hs) == \A n \in hs : LET d == Decide27(n, hs, {}, {}) IN ~Replicates(d) /\ d.del = "none"
-NoTasks(hs) == \A n \in hs : ~Replicates(Decide27(n, hs, {}, {}))
-d\* a check "replicates" when it hands the replicator a task with at least one candidate node. (With overlapping
-\* rules the code as found keeps calling the replicator with an EMPTY candidate list: a holder remembered from
-\* an earlier rule does not lower the shortage of a later rule - a phantom shortage that copies nothing.)
-Replicates(d) == \E k \in 1..Len(d.tasks) : Len(d.tasks[k].nodes) > 0
-Quiet(hs) == \A n \in hs : LET d == Decide27(n, hs, {}, {}) IN ~Replicates(d) /\ d.del = "none"
-NoTasks(hs) == \A n \in hs : ~Replicates(Decide27(n, hs, {}, {}))
-e\* a check "replicates" when it hands the replicator a task with at least one candidate node. (With overlapping
-\* rules the code as found keeps calling the replicator with an EMPTY candidate list: a holder remembered from
-\* an earlier rule does not lower the shortage of a later rule - a phantom shortage that copies nothing.)
-Replicates(d) == \E k \in 1..Len(d.tasks) : Len(d.tasks[k].nodes) > 0
-Quiet(hs) == \A n \in hs : LET d == Decide27(n, hs, {}, {}) IN ~Replicates(d) /\ d.del = "none"
-NoTasks(hs) == \A n \in hs : ~Replicates(Decide27(n, hs, {}, {}))
-2\* a check "replicates" when it hands the replicator a task with at least one candidate node. (With overlapping
-\* rules the code as found keeps calling the replicator with an EMPTY candidate list: a holder remembered from
-\* an earlier rule does not lower the shortage of a later rule - a phantom shortage that copies nothing.)
-Replicates(d) == \E k \in 1..Len(d.tasks) : Len(d.tasks[k].nodes) > 0
-Quiet(hs) == \A n \in hs : LET d == Decide27(n, hs, {}, {}) IN ~Replicates(d) /\ d.del = "none"
-NoTasks(hs) == \A n \in hs : ~Replicates(Decide27(n, hs, {}, {}))
-7\* a check "replicates" when it hands the replicator a task with at least one candidate node. (With overlapping
-\* rules the code as found keeps calling the replicator with an EMPTY candidate list: a holder remembered from
-\* an earlier rule does not lower the shortage of a later rule - a phantom shortage that copies nothing.)
-Replicates(d) == \E k \in 1..Len(d.tasks) : Len(d.tasks[k].nodes) > 0
-Quiet(hs) == \A n \in hs : LET d == Decide27(n, hs, {}, {}) IN ~Replicates(d) /\ d.del = "none"
-NoTasks(hs) == \A n \in hs : ~Replicates(Decide27(n, hs, {}, {}))
-(\* a check "replicates" when it hands the replicator a task with at least one candidate node. (With overlapping
-\* rules the code as found keeps calling the replicator with an EMPTY candidate list: a holder remembered from
-\* an earlier rule does not lower the shortage of a later rule - a phantom shortage that copies nothing.)
-Replicates(d) == \E k \in 1..Len(d.tasks) : Len(d.tasks[k].nodes) > 0
-Quiet(hs) == \A n \in hs : LET d == Decide27(n, hs, {}, {}) IN ~Replicates(d) /\ d.del = "none"
-NoTasks(hs) == \A n \in hs : ~Replicates(Decide27(n, hs, {}, {}))
-n\* a check "replicates" when it hands the replicator a task with at least one candidate node. (With overlapping
-\* rules the code as found keeps calling the replicator with an EMPTY candidate list: a holder remembered from
-\* an earlier rule does not lower the shortage of a later rule - a phantom shortage that copies nothing.)
-Replicates(d) == \E k \in 1..Len(d.tasks) : Len(d.tasks[k].nodes) > 0
-Quiet(hs) == \A n \in hs : LET d == Decide27(n, hs, {}, {}) IN ~Replicates(d) /\ d.del = "none"
-NoTasks(hs) == \A n \in hs : ~Replicates(Decide27(n, hs, {}, {}))
-,\* a check "replicates" when it hands the replicator a task with at least one candidate node. (With overlapping
-\* rules the code as found keeps calling the replicator with an EMPTY candidate list: a holder remembered from
-\* an earlier rule does not lower the shortage of a later rule - a phantom shortage that copies nothing.)
-Replicates(d) == \E k \in 1..Len(d.tasks) : Len(d.tasks[k].nodes) > 0
-Quiet(hs) == \A n \in hs : LET d == Decide27(n, hs, {}, {}) IN ~Replicates(d) /\ d.del = "none"
-NoTasks(hs) == \A n \in hs : ~Replicates(Decide27(n, hs, {}, {}))
- \* a check "replicates" when it hands the replicator a task with at least one candidate node. (With overlapping
-\* rules the code as found keeps calling the replicator with an EMPTY candidate list: a holder remembered from
-\* an earlier rule does not lower the shortage of a later rule - a phantom shortage that copies nothing.)
-Replicates(d) == \E k \in 1..Len(d.tasks) : Len(d.tasks[k].nodes) > 0
-Quiet(hs) == \A n \in hs : LET d == Decide27(n, hs, {}, {}) IN ~Replicates(d) /\ d.del = "none"
-NoTasks(hs) == \A n \in hs : ~Replicates(Decide27(n, hs, {}, {}))
-h\* a check "replicates" when it hands the replicator a task with at least one candidate node. (With overlapping
-\* rules the code as found keeps calling the replicator with an EMPTY candidate list: a holder remembered from
-\* an earlier rule does not lower the shortage of a later rule - a phantom shortage that copies nothing.)
-Replicates(d) == \E k \in 1..Len(d.tasks) : Len(d.tasks[k].nodes) > 0
-Quiet(hs) == \A n \in hs : LET d == Decide27(n, hs, {}, {}) IN ~Replicates(d) /\ d.del = "none"
-NoTasks(hs) == \A n \in hs : ~Replicates(Decide27(n, hs, {}, {}))
-o\* a check "replicates" when it hands the replicator a task with at least one candidate node. (With overlapping
-\* rules the code as found keeps calling the replicator with an EMPTY candidate list: a holder remembered from
-\* an earlier rule does not lower the shortage of a later rule - a phantom shortage that copies nothing.)
-Replicates(d) == \E k \in 1..Len(d.tasks) : Len(d.tasks[k].nodes) > 0
-Quiet(hs) == \A n \in hs : LET d == Decide27(n, hs, {}, {}) IN ~Replicates(d) /\ d.del = "none"
-NoTasks(hs) == \A n \in hs : ~Replicates(Decide27(n, hs, {}, {}))
-l\* a check "replicates" when it hands the replicator a task with at least one candidate node. (With overlapping
-\* rules the code as found keeps calling the replicator with an EMPTY candidate list: a holder remembered from
-\* an earlier rule does not lower the shortage of a later rule - a phantom shortage that copies nothing.)
-Replicates(d) == \E k \in 1..Len(d.tasks) : Len(d.tasks[k].nodes) > 0
-Quiet(hs) == \A n \in hs : LET d == Decide27(n, hs, {}, {}) IN ~Replicates(d) /\ d.del = "none"
-NoTasks(hs) == \A n \in hs : ~Replicates(Decide27(n, hs, {}, {}))
-d\* a check "replicates" when it hands the replicator a task with at least one candidate node. (With overlapping
-\* rules the code as found keeps calling the replicator with an EMPTY candidate list: a holder remembered from
-\* an earlier rule does not lower the shortage of a later rule - a phantom shortage that copies nothing.)
-Replicates(d) == \E k \in 1..Len(d.tasks) : Len(d.tasks[k].nodes) > 0
-Quiet(hs) == \A n \in hs : LET d == Decide27(n, hs, {}, {}) IN ~Replicates(d) /\ d.del = "none"
-NoTasks(hs) == \A n \in hs : ~Replicates(Decide27(n, hs, {}, {}))
-e\* a check "replicates" when it hands the replicator a task with at least one candidate node. (With overlapping
-\* rules the code as found keeps calling the replicator with an EMPTY candidate list: a holder remembered from
-\* an earlier rule does not lower the shortage of a later rule - a phantom shortage that copies nothing.)
-Replicates(d) == \E k \in 1..Len(d.tasks) : Len(d.tasks[k].nodes) > 0
-Quiet(hs) == \A n \in hs : LET d == Decide27(n, hs, {}, {}) IN ~Replicates(d) /\ d.del = "none"
-NoTasks(hs) == \A n \in hs : ~Replicates(Decide27(n, hs, {}, {}))
-r\* a check "replicates" when it hands the replicator a task with at least one candidate node. (With overlapping
-\* rules the code as found keeps calling the replicator with an EMPTY candidate list: a holder remembered from
-\* an earlier rule does not lower the shortage of a later rule - a phantom shortage that copies nothing.)
-Replicates(d) == \E k \in 1..Len(d.tasks) : Len(d.tasks[k].nodes) > 0
-Quiet(hs) == \A n \in hs : LET d == Decide27(n, hs, {}, {}) IN ~Replicates(d) /\ d.del = "none"
-NoTasks(hs) == \A n \in hs : ~Replicates(Decide27(n, hs, {}, {}))
-s\* a check "replicates" when it hands the replicator a task with at least one candidate node. (With overlapping
-\* rules the code as found keeps calling the replicator with an EMPTY candidate list: a holder remembered from
-\* an earlier rule does not lower the shortage of a later rule - a phantom shortage that copies nothing.)
-Replicates(d) == \E k \in 1..Len(d.tasks) : Len(d.tasks[k].nodes) > 0
-Quiet(hs) == \A n \in hs : LET d == Decide27(n, hs, {}, {}) IN ~Replicates(d) /\ d.del = "none"
-NoTasks(hs) == \A n \in hs : ~Replicates(Decide27(n, hs, {}, {}))
-,\* a check "replicates" when it hands the replicator a task with at least one candidate node. (With overlapping
-\* rules the code as found keeps calling the replicator with an EMPTY candidate list: a holder remembered from
-\* an earlier rule does not lower the shortage of a later rule - a phantom shortage that copies nothing.)
-Replicates(d) == \E k \in 1..Len(d.tasks) : Len(d.tasks[k].nodes) > 0
-Quiet(hs) == \A n \in hs : LET d == Decide27(n, hs, {}, {}) IN ~Replicates(d) /\ d.del = "none"
-NoTasks(hs) == \A n \in hs : ~Replicates(Decide27(n, hs, {}, {}))
- \* a check "replicates" when it hands the replicator a task with at least one candidate node. (With overlapping
-\* rules the code as found keeps calling the replicator with an EMPTY candidate list: a holder remembered from
-\* an earlier rule does not lower the shortage of a later rule - a phantom shortage that copies nothing.)
-Replicates(d) == \E k \in 1..Len(d.tasks) : Len(d.tasks[k].nodes) > 0
-Quiet(hs) == \A n \in hs : LET d == Decide27(n, hs, {}, {}) IN ~Replicates(d) /\ d.del = "none"
-NoTasks(hs) == \A n \in hs : ~Replicates(Decide27(n, hs, {}, {}))
-d\* a check "replicates" when it hands the replicator a task with at least one candidate node. (With overlapping
-\* rules the code as found keeps calling the replicator with an EMPTY candidate list: a holder remembered from
-\* an earlier rule does not lower the shortage of a later rule - a phantom shortage that copies nothing.)
-Replicates(d) == \E k \in 1..Len(d.tasks) : Len(d.tasks[k].nodes) > 0
-Quiet(hs) == \A n \in hs : LET d == Decide27(n, hs, {}, {}) IN ~Replicates(d) /\ d.del = "none"
-NoTasks(hs) == \A n \in hs : ~Replicates(Decide27(n, hs, {}, {}))
-o\* a check "replicates" when it hands the replicator a task with at least one candidate node. (With overlapping
-\* rules the code as found keeps calling the replicator with an EMPTY candidate list: a holder remembered from
-\* an earlier rule does not lower the shortage of a later rule - a phantom shortage that copies nothing.)
-Replicates(d) == \E k \in 1..Len(d.tasks) : Len(d.tasks[k].nodes) > 0
-Quiet(hs) == \A n \in hs : LET d == Decide27(n, hs, {}, {}) IN ~Replicates(d) /\ d.del = "none"
-NoTasks(hs) == \A n \in hs : ~Replicates(Decide27(n, hs, {}, {}))
-w\* a check "replicates" when it hands the replicator a task with at least one candidate node. (With overlapping
-\* rules the code as found keeps calling the replicator with an EMPTY candidate list: a holder remembered from
-\* an earlier rule does not lower the shortage of a later rule - a phantom shortage that copies nothing.)
-Replicates(d) == \E k \in 1..Len(d.tasks) : Len(d.tasks[k].nodes) > 0
-Quiet(hs) == \A n \in hs : LET d == Decide27(n, hs, {}, {}) IN ~Replicates(d) /\ d.del = "none"
-NoTasks(hs) == \A n \in hs : ~Replicates(Decide27(n, hs, {}, {}))
-n\* a check "replicates" when it hands the replicator a task with at least one candidate node. (With overlapping
-\* rules the code as found keeps calling the replicator with an EMPTY candidate list: a holder remembered from
-\* an earlier rule does not lower the shortage of a later rule - a phantom shortage that copies nothing.)
-Replicates(d) == \E k \in 1..Len(d.tasks) : Len(d.tasks[k].nodes) > 0
-Quiet(hs) == \A n \in hs : LET d == Decide27(n, hs, {}, {}) IN ~Replicates(d) /\ d.del = "none"
-NoTasks(hs) == \A n \in hs : ~Replicates(Decide27(n, hs, {}, {}))
-,\* a check "replicates" when it hands the replicator a task with at least one candidate node. (With overlapping
-\* rules the code as found keeps calling the replicator with an EMPTY candidate list: a holder remembered from
-\* an earlier rule does not lower the shortage of a later rule - a phantom shortage that copies nothing.)
-Replicates(d) == \E k \in 1..Len(d.tasks) : Len(d.tasks[k].nodes) > 0
-Quiet(hs) == \A n \in hs : LET d == Decide27(n, hs, {}, {}) IN ~Replicates(d) /\ d.del = "none"
-NoTasks(hs) == \A n \in hs : ~Replicates(Decide27(n, hs, {}, {}))
- \* a check "replicates" when it hands the replicator a task with at least one candidate node. (With overlapping
-\* rules the code as found keeps calling the replicator with an EMPTY candidate list: a holder remembered from
-\* an earlier rule does not lower the shortage of a later rule - a phantom shortage that copies nothing.)
-Replicates(d) == \E k \in 1..Len(d.tasks) : Len(d.tasks[k].nodes) > 0
-Quiet(hs) == \A n \in hs : LET d == Decide27(n, hs, {}, {}) IN ~Replicates(d) /\ d.del = "none"
-NoTasks(hs) == \A n \in hs : ~Replicates(Decide27(n, hs, {}, {}))
-r\* a check "replicates" when it hands the replicator a task with at least one candidate node. (With overlapping
-\* rules the code as found keeps calling the replicator with an EMPTY candidate list: a holder remembered from
-\* an earlier rule does not lower the shortage of a later rule - a phantom shortage that copies nothing.)
-Replicates(d) == \E k \in 1..Len(d.tasks) : Len(d.tasks[k].nodes) > 0
-Quiet(hs) == \A n \in hs : LET d == Decide27(n, hs, {}, {}) IN ~Replicates(d) /\ d.del = "none"
-NoTasks(hs) == \A n \in hs : ~Replicates(Decide27(n, hs, {}, {}))
-e\* a check "replicates" when it hands the replicator a task with at least one candidate node. (With overlapping
-\* rules the code as found keeps calling the replicator with an EMPTY candidate list: a holder remembered from
-\* an earlier rule does not lower the shortage of a later rule - a phantom shortage that copies nothing.)
-Replicates(d) == \E k \in 1..Len(d.tasks) : Len(d.tasks[k].nodes) > 0
-Quiet(hs) == \A n \in hs : LET d == Decide27(n, hs, {}, {}) IN ~Replicates(d) /\ d.del = "none"
-NoTasks(hs) == \A n \in hs : ~Replicates(Decide27(n, hs, {}, {}))
-f\* a check "replicates" when it hands the replicator a task with at least one candidate node. (With overlapping
-\* rules the code as found keeps calling the replicator with an EMPTY candidate list: a holder remembered from
-\* an earlier rule does not lower the shortage of a later rule - a phantom shortage that copies nothing.)
-Replicates(d) == \E k \in 1..Len(d.tasks) : Len(d.tasks[k].nodes) > 0
-Quiet(hs) == \A n \in hs : LET d == Decide27(n, hs, {}, {}) IN ~Replicates(d) /\ d.del = "none"
-NoTasks(hs) == \A n \in hs : ~Replicates(Decide27(n, hs, {}, {}))
-u\* a check "replicates" when it hands the replicator a task with at least one candidate node. (With overlapping
-\* rules the code as found keeps calling the replicator with an EMPTY candidate list: a holder remembered from
-\* an earlier rule does not lower the shortage of a later rule - a phantom shortage that copies nothing.)
-Replicates(d) == \E k \in 1..Len(d.tasks) : Len(d.tasks[k].nodes) > 0
-Quiet(hs) == \A n \in hs : LET d == Decide27(n, hs, {}, {}) IN ~Replicates(d) /\ d.del = "none"
-NoTasks(hs) == \A n \in hs : ~Replicates(Decide27(n, hs, {}, {}))
-s\* a check "replicates" when it hands the replicator a task with at least one candidate node. (With overlapping
-\* rules the code as found keeps calling the replicator with an EMPTY candidate list: a holder remembered from
-\* an earlier rule does not lower the shortage of a later rule - a phantom shortage that copies nothing.)
-Replicates(d) == \E k \in 1..Len(d.tasks) : Len(d.tasks[k].nodes) > 0
-Quiet(hs) == \A n \in hs : LET d == Decide27(n, hs, {}, {}) IN ~Replicates(d) /\ d.del = "none"
-NoTasks(hs) == \A n \in hs : ~Replicates(Decide27(n, hs, {}, {}))
-e\* a check "replicates" when it hands the replicator a task with at least one candidate node. (With overlapping
-\* rules the code as found keeps calling the replicator with an EMPTY candidate list: a holder remembered from
-\* an earlier rule does not lower the shortage of a later rule - a phantom shortage that copies nothing.)
-Replicates(d) == \E k \in 1..Len(d.tasks) : Len(d.tasks[k].nodes) > 0
-Quiet(hs) == \A n \in hs : LET d == Decide27(n, hs, {}, {}) IN ~Replicates(d) /\ d.del = "none"
-NoTasks(hs) == \A n \in hs : ~Replicates(Decide27(n, hs, {}, {}))
-)\* a check "replicates" when it hands the replicator a task with at least one candidate node. (With overlapping
-\* rules the code as found keeps calling the replicator with an EMPTY candidate list: a holder remembered from
-\* an earlier rule does not lower the shortage of a later rule - a phantom shortage that copies nothing.)
-Replicates(d) == \E k \in 1..Len(d.tasks) : Len(d.tasks[k].nodes) > 0
-Quiet(hs) == \A n \in hs : LET d == Decide27(n, hs, {}, {}) IN ~Replicates(d) /\ d.del = "none"
-NoTasks(hs) == \A n \in hs : ~Replicates(Decide27(n, hs, {}, {}))
- \* a check "replicates" when it hands the replicator a task with at least one candidate node. (With overlapping
-\* rules the code as found keeps calling the replicator with an EMPTY candidate list: a holder remembered from
-\* an earlier rule does not lower the shortage of a later rule - a phantom shortage that copies nothing.)
-Replicates(d) == \E k \in 1..Len(d.tasks) : Len(d.tasks[k].nodes) > 0
-Quiet(hs) == \A n \in hs : LET d == Decide27(n, hs, {}, {}) IN ~Replicates(d) /\ d.del = "none"
-NoTasks(hs) == \A n \in hs : ~Replicates(Decide27(n, hs, {}, {}))
-I\* a check "replicates" when it hands the replicator a task with at least one candidate node. (With overlapping
-\* rules the code as found keeps calling the replicator with an EMPTY candidate list: a holder remembered from
-\* an earlier rule does not lower the shortage of a later rule - a phantom shortage that copies nothing.)
-Replicates(d) == \E k \in 1..Len(d.tasks) : Len(d.tasks[k].nodes) > 0
-Quiet(hs) == \A n \in hs : LET d == Decide27(n, hs, {}, {}) IN ~Replicates(d) /\ d.del = "none"
-NoTasks(hs) == \A n \in hs : ~Replicates(Decide27(n, hs, {}, {}))
-N\* a check "replicates" when it hands the replicator a task with at least one candidate node. (With overlapping
-\* rules the code as found keeps calling the replicator with an EMPTY candidate list: a holder remembered from
-\* an earlier rule does not lower the shortage of a later rule - a phantom shortage that copies nothing.)
-Replicates(d) == \E k \in 1..Len(d.tasks) : Len(d.tasks[k].nodes) > 0
-Quiet(hs) == \A n \in hs : LET d == Decide27(n, hs, {}, {}) IN ~Replicates(d) /\ d.del = "none"
-NoTasks(hs) == \A n \in hs : ~Replicates(Decide27(n, hs, {}, {}))
-
-\* a check "replicates" when it hands the replicator a task with at least one candidate node. (With overlapping
-\* rules the code as found keeps calling the replicator with an EMPTY candidate list: a holder remembered from
-\* an earlier rule does not lower the shortage of a later rule - a phantom shortage that copies nothing.)
-Replicates(d) == \E k \in 1..Len(d.tasks) : Len(d.tasks[k].nodes) > 0
-Quiet(hs) == \A n \in hs : LET d == Decide27(n, hs, {}, {}) IN ~Replicates(d) /\ d.del = "none"
-NoTasks(hs) == \A n \in hs : ~Replicates(Decide27(n, hs, {}, {}))
- \* a check "replicates" when it hands the replicator a task with at least one candidate node. (With overlapping
-\* rules the code as found keeps calling the replicator with an EMPTY candidate list: a holder remembered from
-\* an earlier rule does not lower the shortage of a later rule - a phantom shortage that copies nothing.)
-Replicates(d) == \E k \in 1..Len(d.tasks) : Len(d.tasks[k].nodes) > 0
-Quiet(hs) == \A n \in hs : LET d == Decide27(n, hs, {}, {}) IN ~Replicates(d) /\ d.del = "none"
-NoTasks(hs) == \A n \in hs : ~Replicates(Decide27(n, hs, {}, {}))
- \* a check "replicates" when it hands the replicator a task with at least one candidate node. (With overlapping
-\* rules the code as found keeps calling the replicator with an EMPTY candidate list: a holder remembered from
-\* an earlier rule does not lower the shortage of a later rule - a phantom shortage that copies nothing.)
-Replicates(d) == \E k \in 1..Len(d.tasks) : Len(d.tasks[k].nodes) > 0
-Quiet(hs) == \A n \in hs : LET d == Decide27(n, hs, {}, {}) IN ~Replicates(d) /\ d.del = "none"
-NoTasks(hs) == \A n \in hs : ~Replicates(Decide27(n, hs, {}, {}))
- \* a check "replicates" when it hands the replicator a task with at least one candidate node. (With overlapping
-\* rules the code as found keeps calling the replicator with an EMPTY candidate list: a holder remembered from
-\* an earlier rule does not lower the shortage of a later rule - a phantom shortage that copies nothing.)
-Replicates(d) == \E k \in 1..Len(d.tasks) : Len(d.tasks[k].nodes) > 0
-Quiet(hs) == \A n \in hs : LET d == Decide27(n, hs, {}, {}) IN ~Replicates(d) /\ d.del = "none"
-NoTasks(hs) == \A n \in hs : ~Replicates(Decide27(n, hs, {}, {}))
- \* a check "replicates" when it hands the replicator a task with at least one candidate node. (With overlapping
-\* rules the code as found keeps calling the replicator with an EMPTY candidate list: a holder remembered from
-\* an earlier rule does not lower the shortage of a later rule - a phantom shortage that copies nothing.)
-Replicates(d) == \E k \in 1..Len(d.tasks) : Len(d.tasks[k].nodes) > 0
-Quiet(hs) == \A n \in hs : LET d == Decide27(n, hs, {}, {}) IN ~Replicates(d) /\ d.del = "none"
-NoTasks(hs) == \A n \in hs : ~Replicates(Decide27(n, hs, {}, {}))
- \* a check "replicates" when it hands the replicator a task with at least one candidate node. (With overlapping
-\* rules the code as found keeps calling the replicator with an EMPTY candidate list: a holder remembered from
-\* an earlier rule does not lower the shortage of a later rule - a phantom shortage that copies nothing.)
-Replicates(d) == \E k \in 1..Len(d.tasks) : Len(d.tasks[k].nodes) > 0
-Quiet(hs) == \A n \in hs : LET d == Decide27(n, hs, {}, {}) IN ~Replicates(d) /\ d.del = "none"
-NoTasks(hs) == \A n \in hs : ~Replicates(Decide27(n, hs, {}, {}))
- \* a check "replicates" when it hands the replicator a task with at least one candidate node. (With overlapping
-\* rules the code as found keeps calling the replicator with an EMPTY candidate list: a holder remembered from
-\* an earlier rule does not lower the shortage of a later rule - a phantom shortage that copies nothing.)
-Replicates(d) == \E k \in 1..Len(d.tasks) : Len(d.tasks[k].nodes) > 0
-Quiet(hs) == \A n \in hs : LET d == Decide27(n, hs, {}, {}) IN ~Replicates(d) /\ d.del = "none"
-NoTasks(hs) == \A n \in hs : ~Replicates(Decide27(n, hs, {}, {}))
- \* a check "replicates" when it hands the replicator a task with at least one candidate node. (With overlapping
-\* rules the code as found keeps calling the replicator with an EMPTY candidate list: a holder remembered from
-\* an earlier rule does not lower the shortage of a later rule - a phantom shortage that copies nothing.)
-Replicates(d) == \E k \in 1..Len(d.tasks) : Len(d.tasks[k].nodes) > 0
-Quiet(hs) == \A n \in hs : LET d == Decide27(n, hs, {}, {}) IN ~Replicates(d) /\ d.del = "none"
-NoTasks(hs) == \A n \in hs : ~Replicates(Decide27(n, hs, {}, {}))
-/\* a check "replicates" when it hands the replicator a task with at least one candidate node. (With overlapping
-\* rules the code as found keeps calling the replicator with an EMPTY candidate list: a holder remembered from
-\* an earlier rule does not lower the shortage of a later rule - a phantom shortage that copies nothing.)
-Replicates(d) == \E k \in 1..Len(d.tasks) : Len(d.tasks[k].nodes) > 0
-Quiet(hs) == \A n \in hs : LET d == Decide27(n, hs, {}, {}) IN ~Replicates(d) /\ d.del = "none"
-NoTasks(hs) == \A n \in hs : ~Replicates(Decide27(n, hs, {}, {}))
-\\* a check "replicates" when it hands the replicator a task with at least one candidate node. (With overlapping
-\* rules the code as found keeps calling the replicator with an EMPTY candidate list: a holder remembered from
-\* an earlier rule does not lower the shortage of a later rule - a phantom shortage that copies nothing.)
-Replicates(d) == \E k \in 1..Len(d.tasks) : Len(d.tasks[k].nodes) > 0
-Quiet(hs) == \A n \in hs : LET d == Decide27(n, hs, {}, {}) IN ~Replicates(d) /\ d.del = "none"
-NoTasks(hs) == \A n \in hs : ~Replicates(Decide27(n, hs, {}, {}))
- \* a check "replicates" when it hands the replicator a task with at least one candidate node. (With overlapping
-\* rules the code as found keeps calling the replicator with an EMPTY candidate list: a holder remembered from
-\* an earlier rule does not lower the shortage of a later rule - a phantom shortage that copies nothing.)
-Replicates(d) == \E k \in 1..Len(d.tasks) : Len(d.tasks[k].nodes) > 0
-Quiet(hs) == \A n \in hs : LET d == Decide27(n, hs, {}, {}) IN ~Replicates(d) /\ d.del = "none"
-NoTasks(hs) == \A n \in hs : ~Replicates(Decide27(n, hs, {}, {}))
-l\* a check "replicates" when it hands the replicator a task with at least one candidate node. (With overlapping
-\* rules the code as found keeps calling the replicator with an EMPTY candidate list: a holder remembered from
-\* an earlier rule does not lower the shortage of a later rule - a phantom shortage that copies nothing.)
-Replicates(d) == \E k \in 1..Len(d.tasks) : Len(d.tasks[k].nodes) > 0
-Quiet(hs) == \A n \in hs : LET d == Decide27(n, hs, {}, {}) IN ~Replicates(d) /\ d.del = "none"
-NoTasks(hs) == \A n \in hs : ~Replicates(Decide27(n, hs, {}, {}))
-a\* a check "replicates" when it hands the replicator a task with at least one candidate node. (With overlapping
-\* rules the code as found keeps calling the replicator with an EMPTY candidate list: a holder remembered from
-\* an earlier rule does not lower the shortage of a later rule - a phantom shortage that copies nothing.)
-Replicates(d) == \E k \in 1..Len(d.tasks) : Len(d.tasks[k].nodes) > 0
-Quiet(hs) == \A n \in hs : LET d == Decide27(n, hs, {}, {}) IN ~Replicates(d) /\ d.del = "none"
-NoTasks(hs) == \A n \in hs : ~Replicates(Decide27(n, hs, {}, {}))
-s\* a check "replicates" when it hands the replicator a task with at least one candidate node. (With overlapping
-\* rules the code as found keeps calling the replicator with an EMPTY candidate list: a holder remembered from
-\* an earlier rule does not lower the shortage of a later rule - a phantom shortage that copies nothing.)
-Replicates(d) == \E k \in 1..Len(d.tasks) : Len(d.tasks[k].nodes) > 0
-Quiet(hs) == \A n \in hs : LET d == Decide27(n, hs, {}, {}) IN ~Replicates(d) /\ d.del = "none"
-NoTasks(hs) == \A n \in hs : ~Replicates(Decide27(n, hs, {}, {}))
-t\* a check "replicates" when it hands the replicator a task with at least one candidate node. (With overlapping
-\* rules the code as found keeps calling the replicator with an EMPTY candidate list: a holder remembered from
-\* an earlier rule does not lower the shortage of a later rule - a phantom shortage that copies nothing.)
-Replicates(d) == \E k \in 1..Len(d.tasks) : Len(d.tasks[k].nodes) > 0
-Quiet(hs) == \A n \in hs : LET d == Decide27(n, hs, {}, {}) IN ~Replicates(d) /\ d.del = "none"
-NoTasks(hs) == \A n \in hs : ~Replicates(Decide27(n, hs, {}, {}))
-'\* a check "replicates" when it hands the replicator a task with at least one candidate node. (With overlapping
-\* rules the code as found keeps calling the replicator with an EMPTY candidate list: a holder remembered from
-\* an earlier rule does not lower the shortage of a later rule - a phantom shortage that copies nothing.)
-Replicates(d) == \E k \in 1..Len(d.tasks) : Len(d.tasks[k].nodes) > 0
-Quiet(hs) == \A n \in hs : LET d == Decide27(n, hs, {}, {}) IN ~Replicates(d) /\ d.del = "none"
-NoTasks(hs) == \A n \in hs : ~Replicates(Decide27(n, hs, {}, {}))
- \* a check "replicates" when it hands the replicator a task with at least one candidate node. (With overlapping
-\* rules the code as found keeps calling the replicator with an EMPTY candidate list: a holder remembered from
-\* an earlier rule does not lower the shortage of a later rule - a phantom shortage that copies nothing.)
-Replicates(d) == \E k \in 1..Len(d.tasks) : Len(d.tasks[k].nodes) > 0
-Quiet(hs) == \A n \in hs : LET d == Decide27(n, hs, {}, {}) IN ~Replicates(d) /\ d.del = "none"
-NoTasks(hs) == \A n \in hs : ~Replicates(Decide27(n, hs, {}, {}))
-=\* a check "replicates" when it hands the replicator a task with at least one candidate node. (With overlapping
-\* rules the code as found keeps calling the replicator with an EMPTY candidate list: a holder remembered from
-\* an earlier rule does not lower the shortage of a later rule - a phantom shortage that copies nothing.)
-Replicates(d) == \E k \in 1..Len(d.tasks) : Len(d.tasks[k].nodes) > 0
-Quiet(hs) == \A n \in hs : LET d == Decide27(n, hs, {}, {}) IN ~Replicates(d) /\ d.del = "none"
-NoTasks(hs) == \A n \in hs : ~Replicates(Decide27(n, hs, {}, {}))
- \* a check "replicates" when it hands the replicator a task with at least one candidate node. (With overlapping
-\* rules the code as found keeps calling the replicator with an EMPTY candidate list: a holder remembered from
-\* an earlier rule does not lower the shortage of a later rule - a phantom shortage that copies nothing.)
-Replicates(d) == \E k \in 1..Len(d.tasks) : Len(d.tasks[k].nodes) > 0
-Quiet(hs) == \A n \in hs : LET d == Decide27(n, hs, {}, {}) IN ~Replicates(d) /\ d.del = "none"
-NoTasks(hs) == \A n \in hs : ~Replicates(Decide27(n, hs, {}, {}))
-d\* a check "replicates" when it hands the replicator a task with at least one candidate node. (With overlapping
-\* rules the code as found keeps calling the replicator with an EMPTY candidate list: a holder remembered from
-\* an earlier rule does not lower the shortage of a later rule - a phantom shortage that copies nothing.)
-Replicates(d) == \E k \in 1..Len(d.tasks) : Len(d.tasks[k].nodes) > 0
-Quiet(hs) == \A n \in hs : LET d == Decide27(n, hs, {}, {}) IN ~Replicates(d) /\ d.del = "none"
-NoTasks(hs) == \A n \in hs : ~Replicates(Decide27(n, hs, {}, {}))
-
-\* a check "replicates" when it hands the replicator a task with at least one candidate node. (With overlapping
-\* rules the code as found keeps calling the replicator with an EMPTY candidate list: a holder remembered from
-\* an earlier rule does not lower the shortage of a later rule - a phantom shortage that copies nothing.)
-Replicates(d) == \E k \in 1..Len(d.tasks) : Len(d.tasks[k].nodes) > 0
-Quiet(hs) == \A n \in hs : LET d == Decide27(n, hs, {}, {}) IN ~Replicates(d) /\ d.del = "none"
-NoTasks(hs) == \A n \in hs : ~Replicates(Decide27(n, hs, {}, {}))
- \* a check "replicates" when it hands the replicator a task with at least one candidate node. (With overlapping
-\* rules the code as found keeps calling the replicator with an EMPTY candidate list: a holder remembered from
-\* an earlier rule does not lower the shortage of a later rule - a phantom shortage that copies nothing.)
-Replicates(d) == \E k \in 1..Len(d.tasks) : Len(d.tasks[k].nodes) > 0
-Quiet(hs) == \A n \in hs : LET d == Decide27(n, hs, {}, {}) IN ~Replicates(d) /\ d.del = "none"
-NoTasks(hs) == \A n \in hs : ~Replicates(Decide27(n, hs, {}, {}))
- \* a check "replicates" when it hands the replicator a task with at least one candidate node. (With overlapping
-\* rules the code as found keeps calling the replicator with an EMPTY candidate list: a holder remembered from
-\* an earlier rule does not lower the shortage of a later rule - a phantom shortage that copies nothing.)
-Replicates(d) == \E k \in 1..Len(d.tasks) : Len(d.tasks[k].nodes) > 0
-Quiet(hs) == \A n \in hs : LET d == Decide27(n, hs, {}, {}) IN ~Replicates(d) /\ d.del = "none"
-NoTasks(hs) == \A n \in hs : ~Replicates(Decide27(n, hs, {}, {}))
- \* a check "replicates" when it hands the replicator a task with at least one candidate node. (With overlapping
-\* rules the code as found keeps calling the replicator with an EMPTY candidate list: a holder remembered from
-\* an earlier rule does not lower the shortage of a later rule - a phantom shortage that copies nothing.)
-Replicates(d) == \E k \in 1..Len(d.tasks) : Len(d.tasks[k].nodes) > 0
-Quiet(hs) == \A n \in hs : LET d == Decide27(n, hs, {}, {}) IN ~Replicates(d) /\ d.del = "none"
-NoTasks(hs) == \A n \in hs : ~Replicates(Decide27(n, hs, {}, {}))
- \* a check "replicates" when it hands the replicator a task with at least one candidate node. (With overlapping
-\* rules the code as found keeps calling the replicator with an EMPTY candidate list: a holder remembered from
-\* an earlier rule does not lower the shortage of a later rule - a phantom shortage that copies nothing.)
-Replicates(d) == \E k \in 1..Len(d.tasks) : Len(d.tasks[k].nodes) > 0
-Quiet(hs) == \A n \in hs : LET d == Decide27(n, hs, {}, {}) IN ~Replicates(d) /\ d.del = "none"
-NoTasks(hs) == \A n \in hs : ~Replicates(Decide27(n, hs, {}, {}))
- \* a check "replicates" when it hands the replicator a task with at least one candidate node. (With overlapping
-\* rules the code as found keeps calling the replicator with an EMPTY candidate list: a holder remembered from
-\* an earlier rule does not lower the shortage of a later rule - a phantom shortage that copies nothing.)
-Replicates(d) == \E k \in 1..Len(d.tasks) : Len(d.tasks[k].nodes) > 0
-Quiet(hs) == \A n \in hs : LET d == Decide27(n, hs, {}, {}) IN ~Replicates(d) /\ d.del = "none"
-NoTasks(hs) == \A n \in hs : ~Replicates(Decide27(n, hs, {}, {}))
- \* a check "replicates" when it hands the replicator a task with at least one candidate node. (With overlapping
-\* rules the code as found keeps calling the replicator with an EMPTY candidate list: a holder remembered from
-\* an earlier rule does not lower the shortage of a later rule - a phantom shortage that copies nothing.)
-Replicates(d) == \E k \in 1..Len(d.tasks) : Len(d.tasks[k].nodes) > 0
-Quiet(hs) == \A n \in hs : LET d == Decide27(n, hs, {}, {}) IN ~Replicates(d) /\ d.del = "none"
-NoTasks(hs) == \A n \in hs : ~Replicates(Decide27(n, hs, {}, {}))
- \* a check "replicates" when it hands the replicator a task with at least one candidate node. (With overlapping
-\* rules the code as found keeps calling the replicator with an EMPTY candidate list: a holder remembered from
-\* an earlier rule does not lower the shortage of a later rule - a phantom shortage that copies nothing.)
-Replicates(d) == \E k \in 1..Len(d.tasks) : Len(d.tasks[k].nodes) > 0
-Quiet(hs) == \A n \in hs : LET d == Decide27(n, hs, {}, {}) IN ~Replicates(d) /\ d.del = "none"
-NoTasks(hs) == \A n \in hs : ~Replicates(Decide27(n, hs, {}, {}))
-/\* a check "replicates" when it hands the replicator a task with at least one candidate node. (With overlapping
-\* rules the code as found keeps calling the replicator with an EMPTY candidate list: a holder remembered from
-\* an earlier rule does not lower the shortage of a later rule - a phantom shortage that copies nothing.)
-Replicates(d) == \E k \in 1..Len(d.tasks) : Len(d.tasks[k].nodes) > 0
-Quiet(hs) == \A n \in hs : LET d == Decide27(n, hs, {}, {}) IN ~Replicates(d) /\ d.del = "none"
-NoTasks(hs) == \A n \in hs : ~Replicates(Decide27(n, hs, {}, {}))
-\\* a check "replicates" when it hands the replicator a task with at least one candidate node. (With overlapping
-\* rules the code as found keeps calling the replicator with an EMPTY candidate list: a holder remembered from
-\* an earlier rule does not lower the shortage of a later rule - a phantom shortage that copies nothing.)
-Replicates(d) == \E k \in 1..Len(d.tasks) : Len(d.tasks[k].nodes) > 0
-Quiet(hs) == \A n \in hs : LET d == Decide27(n, hs, {}, {}) IN ~Replicates(d) /\ d.del = "none"
-NoTasks(hs) == \A n \in hs : ~Replicates(Decide27(n, hs, {}, {}))
- \* a check "replicates" when it hands the replicator a task with at least one candidate node. (With overlapping
-\* rules the code as found keeps calling the replicator with an EMPTY candidate list: a holder remembered from
-\* an earlier rule does not lower the shortage of a later rule - a phantom shortage that copies nothing.)
-Replicates(d) == \E k \in 1..Len(d.tasks) : Len(d.tasks[k].nodes) > 0
-Quiet(hs) == \A n \in hs : LET d == Decide27(n, hs, {}, {}) IN ~Replicates(d) /\ d.del = "none"
-NoTasks(hs) == \A n \in hs : ~Replicates(Decide27(n, hs, {}, {}))
-h\* a check "replicates" when it hands the replicator a task with at least one candidate node. (With overlapping
-\* rules the code as found keeps calling the replicator with an EMPTY candidate list: a holder remembered from
-\* an earlier rule does not lower the shortage of a later rule - a phantom shortage that copies nothing.)
-Replicates(d) == \E k \in 1..Len(d.tasks) : Len(d.tasks[k].nodes) > 0
-Quiet(hs) == \A n \in hs : LET d == Decide27(n, hs, {}, {}) IN ~Replicates(d) /\ d.del = "none"
-NoTasks(hs) == \A n \in hs : ~Replicates(Decide27(n, hs, {}, {}))
-o\* a check "replicates" when it hands the replicator a task with at least one candidate node. (With overlapping
-\* rules the code as found keeps calling the replicator with an EMPTY candidate list: a holder remembered from
-\* an earlier rule does not lower the shortage of a later rule - a phantom shortage that copies nothing.)
-Replicates(d) == \E k \in 1..Len(d.tasks) : Len(d.tasks[k].nodes) > 0
-Quiet(hs) == \A n \in hs : LET d == Decide27(n, hs, {}, {}) IN ~Replicates(d) /\ d.del = "none"
-NoTasks(hs) == \A n \in hs : ~Replicates(Decide27(n, hs, {}, {}))
-l\* a check "replicates" when it hands the replicator a task with at least one candidate node. (With overlapping
-\* rules the code as found keeps calling the replicator with an EMPTY candidate list: a holder remembered from
-\* an earlier rule does not lower the shortage of a later rule - a phantom shortage that copies nothing.)
-Replicates(d) == \E k \in 1..Len(d.tasks) : Len(d.tasks[k].nodes) > 0
-Quiet(hs) == \A n \in hs : LET d == Decide27(n, hs, {}, {}) IN ~Replicates(d) /\ d.del = "none"
-NoTasks(hs) == \A n \in hs : ~Replicates(Decide27(n, hs, {}, {}))
-d\* a check "replicates" when it hands the replicator a task with at least one candidate node. (With overlapping
-\* rules the code as found keeps calling the replicator with an EMPTY candidate list: a holder remembered from
-\* an earlier rule does not lower the shortage of a later rule - a phantom shortage that copies nothing.)
-Replicates(d) == \E k \in 1..Len(d.tasks) : Len(d.tasks[k].nodes) > 0
-Quiet(hs) == \A n \in hs : LET d == Decide27(n, hs, {}, {}) IN ~Replicates(d) /\ d.del = "none"
-NoTasks(hs) == \A n \in hs : ~Replicates(Decide27(n, hs, {}, {}))
-e\* a check "replicates" when it hands the replicator a task with at least one candidate node. (With overlapping
-\* rules the code as found keeps calling the replicator with an EMPTY candidate list: a holder remembered from
-\* an earlier rule does not lower the shortage of a later rule - a phantom shortage that copies nothing.)
-Replicates(d) == \E k \in 1..Len(d.tasks) : Len(d.tasks[k].nodes) > 0
-Quiet(hs) == \A n \in hs : LET d == Decide27(n, hs, {}, {}) IN ~Replicates(d) /\ d.del = "none"
-NoTasks(hs) == \A n \in hs : ~Replicates(Decide27(n, hs, {}, {}))
-r\* a check "replicates" when it hands the replicator a task with at least one candidate node. (With overlapping
-\* rules the code as found keeps calling the replicator with an EMPTY candidate list: a holder remembered from
-\* an earlier rule does not lower the shortage of a later rule - a phantom shortage that copies nothing.)
-Replicates(d) == \E k \in 1..Len(d.tasks) : Len(d.tasks[k].nodes) > 0
-Quiet(hs) == \A n \in hs : LET d == Decide27(n, hs, {}, {}) IN ~Replicates(d) /\ d.del = "none"
-NoTasks(hs) == \A n \in hs : ~Replicates(Decide27(n, hs, {}, {}))
-s\* a check "replicates" when it hands the replicator a task with at least one candidate node. (With overlapping
-\* rules the code as found keeps calling the replicator with an EMPTY candidate list: a holder remembered from
-\* an earlier rule does not lower the shortage of a later rule - a phantom shortage that copies nothing.)
-Replicates(d) == \E k \in 1..Len(d.tasks) : Len(d.tasks[k].nodes) > 0
-Quiet(hs) == \A n \in hs : LET d == Decide27(n, hs, {}, {}) IN ~Replicates(d) /\ d.del = "none"
-NoTasks(hs) == \A n \in hs : ~Replicates(Decide27(n, hs, {}, {}))
-'\* a check "replicates" when it hands the replicator a task with at least one candidate node. (With overlapping
-\* rules the code as found keeps calling the replicator with an EMPTY candidate list: a holder remembered from
-\* an earlier rule does not lower the shortage of a later rule - a phantom shortage that copies nothing.)
-Replicates(d) == \E k \in 1..Len(d.tasks) : Len(d.tasks[k].nodes) > 0
-Quiet(hs) == \A n \in hs : LET d == Decide27(n, hs, {}, {}) IN ~Replicates(d) /\ d.del = "none"
-NoTasks(hs) == \A n \in hs : ~Replicates(Decide27(n, hs, {}, {}))
- \* a check "replicates" when it hands the replicator a task with at least one candidate node. (With overlapping
-\* rules the code as found keeps calling the replicator with an EMPTY candidate list: a holder remembered from
-\* an earlier rule does not lower the shortage of a later rule - a phantom shortage that copies nothing.)
-Replicates(d) == \E k \in 1..Len(d.tasks) : Len(d.tasks[k].nodes) > 0
-Quiet(hs) == \A n \in hs : LET d == Decide27(n, hs, {}, {}) IN ~Replicates(d) /\ d.del = "none"
-NoTasks(hs) == \A n \in hs : ~Replicates(Decide27(n, hs, {}, {}))
-=\* a check "replicates" when it hands the replicator a task with at least one candidate node. (With overlapping
-\* rules the code as found keeps calling the replicator with an EMPTY candidate list: a holder remembered from
-\* an earlier rule does not lower the shortage of a later rule - a phantom shortage that copies nothing.)
-Replicates(d) == \E k \in 1..Len(d.tasks) : Len(d.tasks[k].nodes) > 0
-Quiet(hs) == \A n \in hs : LET d == Decide27(n, hs, {}, {}) IN ~Replicates(d) /\ d.del = "none"
-NoTasks(hs) == \A n \in hs : ~Replicates(Decide27(n, hs, {}, {}))
- \* a check "replicates" when it hands the replicator a task with at least one candidate node. (With overlapping
-\* rules the code as found keeps calling the replicator with an EMPTY candidate list: a holder remembered from
-\* an earlier rule does not lower the shortage of a later rule - a phantom shortage that copies nothing.)
-Replicates(d) == \E k \in 1..Len(d.tasks) : Len(d.tasks[k].nodes) > 0
-Quiet(hs) == \A n \in hs : LET d == Decide27(n, hs, {}, {}) IN ~Replicates(d) /\ d.del = "none"
-NoTasks(hs) == \A n \in hs : ~Replicates(Decide27(n, hs, {}, {}))
-A\* a check "replicates" when it hands the replicator a task with at least one candidate node. (With overlapping
-\* rules the code as found keeps calling the replicator with an EMPTY candidate list: a holder remembered from
-\* an earlier rule does not lower the shortage of a later rule - a phantom shortage that copies nothing.)
-Replicates(d) == \E k \in 1..Len(d.tasks) : Len(d.tasks[k].nodes) > 0
-Quiet(hs) == \A n \in hs : LET d == Decide27(n, hs, {}, {}) IN ~Replicates(d) /\ d.del = "none"
-NoTasks(hs) == \A n \in hs : ~Replicates(Decide27(n, hs, {}, {}))
-f\* a check "replicates" when it hands the replicator a task with at least one candidate node. (With overlapping
-\* rules the code as found keeps calling the replicator with an EMPTY candidate list: a holder remembered from
-\* an earlier rule does not lower the shortage of a later rule - a phantom shortage that copies nothing.)
-Replicates(d) == \E k \in 1..Len(d.tasks) : Len(d.tasks[k].nodes) > 0
-Quiet(hs) == \A n \in hs : LET d == Decide27(n, hs, {}, {}) IN ~Replicates(d) /\ d.del = "none"
-NoTasks(hs) == \A n \in hs : ~Replicates(Decide27(n, hs, {}, {}))
-t\* a check "replicates" when it hands the replicator a task with at least one candidate node. (With overlapping
-\* rules the code as found keeps calling the replicator with an EMPTY candidate list: a holder remembered from
-\* an earlier rule does not lower the shortage of a later rule - a phantom shortage that copies nothing.)
-Replicates(d) == \E k \in 1..Len(d.tasks) : Len(d.tasks[k].nodes) > 0
-Quiet(hs) == \A n \in hs : LET d == Decide27(n, hs, {}, {}) IN ~Replicates(d) /\ d.del = "none"
-NoTasks(hs) == \A n \in hs : ~Replicates(Decide27(n, hs, {}, {}))
-e\* a check "replicates" when it hands the replicator a task with at least one candidate node. (With overlapping
-\* rules the code as found keeps calling the replicator with an EMPTY candidate list: a holder remembered from
-\* an earlier rule does not lower the shortage of a later rule - a phantom shortage that copies nothing.)
-Replicates(d) == \E k \in 1..Len(d.tasks) : Len(d.tasks[k].nodes) > 0
-Quiet(hs) == \A n \in hs : LET d == Decide27(n, hs, {}, {}) IN ~Replicates(d) /\ d.del = "none"
-NoTasks(hs) == \A n \in hs : ~Replicates(Decide27(n, hs, {}, {}))
-r\* a check "replicates" when it hands the replicator a task with at least one candidate node. (With overlapping
-\* rules the code as found keeps calling the replicator with an EMPTY candidate list: a holder remembered from
-\* an earlier rule does not lower the shortage of a later rule - a phantom shortage that copies nothing.)
-Replicates(d) == \E k \in 1..Len(d.tasks) : Len(d.tasks[k].nodes) > 0
-Quiet(hs) == \A n \in hs : LET d == Decide27(n, hs, {}, {}) IN ~Replicates(d) /\ d.del = "none"
-NoTasks(hs) == \A n \in hs : ~Replicates(Decide27(n, hs, {}, {}))
-(\* a check "replicates" when it hands the replicator a task with at least one candidate node. (With overlapping
-\* rules the code as found keeps calling the replicator with an EMPTY candidate list: a holder remembered from
-\* an earlier rule does not lower the shortage of a later rule - a phantom shortage that copies nothing.)
-Replicates(d) == \E k \in 1..Len(d.tasks) : Len(d.tasks[k].nodes) > 0
-Quiet(hs) == \A n \in hs : LET d == Decide27(n, hs, {}, {}) IN ~Replicates(d) /\ d.del = "none"
-NoTasks(hs) == \A n \in hs : ~Replicates(Decide27(n, hs, {}, {}))
-h\* a check "replicates" when it hands the replicator a task with at least one candidate node. (With overlapping
-\* rules the code as found keeps calling the replicator with an EMPTY candidate list: a holder remembered from
-\* an earlier rule does not lower the shortage of a later rule - a phantom shortage that copies nothing.)
-Replicates(d) == \E k \in 1..Len(d.tasks) : Len(d.tasks[k].nodes) > 0
-Quiet(hs) == \A n \in hs : LET d == Decide27(n, hs, {}, {}) IN ~Replicates(d) /\ d.del = "none"
-NoTasks(hs) == \A n \in hs : ~Replicates(Decide27(n, hs, {}, {}))
-o\* a check "replicates" when it hands the replicator a task with at least one candidate node. (With overlapping
-\* rules the code as found keeps calling the replicator with an EMPTY candidate list: a holder remembered from
-\* an earlier rule does not lower the shortage of a later rule - a phantom shortage that copies nothing.)
-Replicates(d) == \E k \in 1..Len(d.tasks) : Len(d.tasks[k].nodes) > 0
-Quiet(hs) == \A n \in hs : LET d == Decide27(n, hs, {}, {}) IN ~Replicates(d) /\ d.del = "none"
-NoTasks(hs) == \A n \in hs : ~Replicates(Decide27(n, hs, {}, {}))
-l\* a check "replicates" when it hands the replicator a task with at least one candidate node. (With overlapping
-\* rules the code as found keeps calling the replicator with an EMPTY candidate list: a holder remembered from
-\* an earlier rule does not lower the shortage of a later rule - a phantom shortage that copies nothing.)
-Replicates(d) == \E k \in 1..Len(d.tasks) : Len(d.tasks[k].nodes) > 0
-Quiet(hs) == \A n \in hs : LET d == Decide27(n, hs, {}, {}) IN ~Replicates(d) /\ d.del = "none"
-NoTasks(hs) == \A n \in hs : ~Replicates(Decide27(n, hs, {}, {}))
-d\* a check "replicates" when it hands the replicator a task with at least one candidate node. (With overlapping
-\* rules the code as found keeps calling the replicator with an EMPTY candidate list: a holder remembered from
-\* an earlier rule does not lower the shortage of a later rule - a phantom shortage that copies nothing.)
-Replicates(d) == \E k \in 1..Len(d.tasks) : Len(d.tasks[k].nodes) > 0
-Quiet(hs) == \A n \in hs : LET d == Decide27(n, hs, {}, {}) IN ~Replicates(d) /\ d.del = "none"
-NoTasks(hs) == \A n \in hs : ~Replicates(Decide27(n, hs, {}, {}))
-e\* a check "replicates" when it hands the replicator a task with at least one candidate node. (With overlapping
-\* rules the code as found keeps calling the replicator with an EMPTY candidate list: a holder remembered from
-\* an earlier rule does not lower the shortage of a later rule - a phantom shortage that copies nothing.)
-Replicates(d) == \E k \in 1..Len(d.tasks) : Len(d.tasks[k].nodes) > 0
-Quiet(hs) == \A n \in hs : LET d == Decide27(n, hs, {}, {}) IN ~Replicates(d) /\ d.del = "none"
-NoTasks(hs) == \A n \in hs : ~Replicates(Decide27(n, hs, {}, {}))
-r\* a check "replicates" when it hands the replicator a task with at least one candidate node. (With overlapping
-\* rules the code as found keeps calling the replicator with an EMPTY candidate list: a holder remembered from
-\* an earlier rule does not lower the shortage of a later rule - a phantom shortage that copies nothing.)
-Replicates(d) == \E k \in 1..Len(d.tasks) : Len(d.tasks[k].nodes) > 0
-Quiet(hs) == \A n \in hs : LET d == Decide27(n, hs, {}, {}) IN ~Replicates(d) /\ d.del = "none"
-NoTasks(hs) == \A n \in hs : ~Replicates(Decide27(n, hs, {}, {}))
-s\* a check "replicates" when it hands the replicator a task with at least one candidate node. (With overlapping
-\* rules the code as found keeps calling the replicator with an EMPTY candidate list: a holder remembered from
-\* an earlier rule does not lower the shortage of a later rule - a phantom shortage that copies nothing.)
-Replicates(d) == \E k \in 1..Len(d.tasks) : Len(d.tasks[k].nodes) > 0
-Quiet(hs) == \A n \in hs : LET d == Decide27(n, hs, {}, {}) IN ~Replicates(d) /\ d.del = "none"
-NoTasks(hs) == \A n \in hs : ~Replicates(Decide27(n, hs, {}, {}))
-,\* a check "replicates" when it hands the replicator a task with at least one candidate node. (With overlapping
-\* rules the code as found keeps calling the replicator with an EMPTY candidate list: a holder remembered from
-\* an earlier rule does not lower the shortage of a later rule - a phantom shortage that copies nothing.)
-Replicates(d) == \E k \in 1..Len(d.tasks) : Len(d.tasks[k].nodes) > 0
-Quiet(hs) == \A n \in hs : LET d == Decide27(n, hs, {}, {}) IN ~Replicates(d) /\ d.del = "none"
-NoTasks(hs) == \A n \in hs : ~Replicates(Decide27(n, hs, {}, {}))
- \* a check "replicates" when it hands the replicator a task with at least one candidate node. (With overlapping
-\* rules the code as found keeps calling the replicator with an EMPTY candidate list: a holder remembered from
-\* an earlier rule does not lower the shortage of a later rule - a phantom shortage that copies nothing.)
-Replicates(d) == \E k \in 1..Len(d.tasks) : Len(d.tasks[k].nodes) > 0
-Quiet(hs) == \A n \in hs : LET d == Decide27(n, hs, {}, {}) IN ~Replicates(d) /\ d.del = "none"
-NoTasks(hs) == \A n \in hs : ~Replicates(Decide27(n, hs, {}, {}))
-d\* a check "replicates" when it hands the replicator a task with at least one candidate node. (With overlapping
-\* rules the code as found keeps calling the replicator with an EMPTY candidate list: a holder remembered from
-\* an earlier rule does not lower the shortage of a later rule - a phantom shortage that copies nothing.)
-Replicates(d) == \E k \in 1..Len(d.tasks) : Len(d.tasks[k].nodes) > 0
-Quiet(hs) == \A n \in hs : LET d == Decide27(n, hs, {}, {}) IN ~Replicates(d) /\ d.del = "none"
-NoTasks(hs) == \A n \in hs : ~Replicates(Decide27(n, hs, {}, {}))
-)\* a check "replicates" when it hands the replicator a task with at least one candidate node. (With overlapping
-\* rules the code as found keeps calling the replicator with an EMPTY candidate list: a holder remembered from
-\* an earlier rule does not lower the shortage of a later rule - a phantom shortage that copies nothing.)
-Replicates(d) == \E k \in 1..Len(d.tasks) : Len(d.tasks[k].nodes) > 0
-Quiet(hs) == \A n \in hs : LET d == Decide27(n, hs, {}, {}) IN ~Replicates(d) /\ d.del = "none"
-NoTasks(hs) == \A n \in hs : ~Replicates(Decide27(n, hs, {}, {}))
-
-\* a check "replicates" when it hands the replicator a task with at least one candidate node. (With overlapping
-\* rules the code as found keeps calling the replicator with an EMPTY candidate list: a holder remembered from
-\* an earlier rule does not lower the shortage of a later rule - a phantom shortage that copies nothing.)
-Replicates(d) == \E k \in 1..Len(d.tasks) : Len(d.tasks[k].nodes) > 0
-Quiet(hs) == \A n \in hs : LET d == Decide27(n, hs, {}, {}) IN ~Replicates(d) /\ d.del = "none"
-NoTasks(hs) == \A n \in hs : ~Replicates(Decide27(n, hs, {}, {}))
- \* a check "replicates" when it hands the replicator a task with at least one candidate node. (With overlapping
-\* rules the code as found keeps calling the replicator with an EMPTY candidate list: a holder remembered from
-\* an earlier rule does not lower the shortage of a later rule - a phantom shortage that copies nothing.)
-Replicates(d) == \E k \in 1..Len(d.tasks) : Len(d.tasks[k].nodes) > 0
-Quiet(hs) == \A n \in hs : LET d == Decide27(n, hs, {}, {}) IN ~Replicates(d) /\ d.del = "none"
-NoTasks(hs) == \A n \in hs : ~Replicates(Decide27(n, hs, {}, {}))
- \* a check "replicates" when it hands the replicator a task with at least one candidate node. (With overlapping
-\* rules the code as found keeps calling the replicator with an EMPTY candidate list: a holder remembered from
-\* an earlier rule does not lower the shortage of a later rule - a phantom shortage that copies nothing.)
-Replicates(d) == \E k \in 1..Len(d.tasks) : Len(d.tasks[k].nodes) > 0
-Quiet(hs) == \A n \in hs : LET d == Decide27(n, hs, {}, {}) IN ~Replicates(d) /\ d.del = "none"
-NoTasks(hs) == \A n \in hs : ~Replicates(Decide27(n, hs, {}, {}))
-/\* a check "replicates" when it hands the replicator a task with at least one candidate node. (With overlapping
-\* rules the code as found keeps calling the replicator with an EMPTY candidate list: a holder remembered from
-\* an earlier rule does not lower the shortage of a later rule - a phantom shortage that copies nothing.)
-Replicates(d) == \E k \in 1..Len(d.tasks) : Len(d.tasks[k].nodes) > 0
-Quiet(hs) == \A n \in hs : LET d == Decide27(n, hs, {}, {}) IN ~Replicates(d) /\ d.del = "none"
-NoTasks(hs) == \A n \in hs : ~Replicates(Decide27(n, hs, {}, {}))
-\\* a check "replicates" when it hands the replicator a task with at least one candidate node. (With overlapping
-\* rules the code as found keeps calling the replicator with an EMPTY candidate list: a holder remembered from
-\* an earlier rule does not lower the shortage of a later rule - a phantom shortage that copies nothing.)
-Replicates(d) == \E k \in 1..Len(d.tasks) : Len(d.tasks[k].nodes) > 0
-Quiet(hs) == \A n \in hs : LET d == Decide27(n, hs, {}, {}) IN ~Replicates(d) /\ d.del = "none"
-NoTasks(hs) == \A n \in hs : ~Replicates(Decide27(n, hs, {}, {}))
- \* a check "replicates" when it hands the replicator a task with at least one candidate node. (With overlapping
-\* rules the code as found keeps calling the replicator with an EMPTY candidate list: a holder remembered from
-\* an earlier rule does not lower the shortage of a later rule - a phantom shortage that copies nothing.)
-Replicates(d) == \E k \in 1..Len(d.tasks) : Len(d.tasks[k].nodes) > 0
-Quiet(hs) == \A n \in hs : LET d == Decide27(n, hs, {}, {}) IN ~Replicates(d) /\ d.del = "none"
-NoTasks(hs) == \A n \in hs : ~Replicates(Decide27(n, hs, {}, {}))
-U\* a check "replicates" when it hands the replicator a task with at least one candidate node. (With overlapping
-\* rules the code as found keeps calling the replicator with an EMPTY candidate list: a holder remembered from
-\* an earlier rule does not lower the shortage of a later rule - a phantom shortage that copies nothing.)
-Replicates(d) == \E k \in 1..Len(d.tasks) : Len(d.tasks[k].nodes) > 0
-Quiet(hs) == \A n \in hs : LET d == Decide27(n, hs, {}, {}) IN ~Replicates(d) /\ d.del = "none"
-NoTasks(hs) == \A n \in hs : ~Replicates(Decide27(n, hs, {}, {}))
-N\* a check "replicates" when it hands the replicator a task with at least one candidate node. (With overlapping
-\* rules the code as found keeps calling the replicator with an EMPTY candidate list: a holder remembered from
-\* an earlier rule does not lower the shortage of a later rule - a phantom shortage that copies nothing.)
-Replicates(d) == \E k \in 1..Len(d.tasks) : Len(d.tasks[k].nodes) > 0
-Quiet(hs) == \A n \in hs : LET d == Decide27(n, hs, {}, {}) IN ~Replicates(d) /\ d.del = "none"
-NoTasks(hs) == \A n \in hs : ~Replicates(Decide27(n, hs, {}, {}))
-C\* a check "replicates" when it hands the replicator a task with at least one candidate node. (With overlapping
-\* rules the code as found keeps calling the replicator with an EMPTY candidate list: a holder remembered from
-\* an earlier rule does not lower the shortage of a later rule - a phantom shortage that copies nothing.)
-Replicates(d) == \E k \in 1..Len(d.tasks) : Len(d.tasks[k].nodes) > 0
-Quiet(hs) == \A n \in hs : LET d == Decide27(n, hs, {}, {}) IN ~Replicates(d) /\ d.del = "none"
-NoTasks(hs) == \A n \in hs : ~Replicates(Decide27(n, hs, {}, {}))
-H\* a check "replicates" when it hands the replicator a task with at least one candidate node. (With overlapping
-\* rules the code as found keeps calling the replicator with an EMPTY candidate list: a holder remembered from
-\* an earlier rule does not lower the shortage of a later rule - a phantom shortage that copies nothing.)
-Replicates(d) == \E k \in 1..Len(d.tasks) : Len(d.tasks[k].nodes) > 0
-Quiet(hs) == \A n \in hs : LET d == Decide27(n, hs, {}, {}) IN ~Replicates(d) /\ d.del = "none"
-NoTasks(hs) == \A n \in hs : ~Replicates(Decide27(n, hs, {}, {}))
-A\* a check "replicates" when it hands the replicator a task with at least one candidate node. (With overlapping
-\* rules the code as found keeps calling the replicator with an EMPTY candidate list: a holder remembered from
-\* an earlier rule does not lower the shortage of a later rule - a phantom shortage that copies nothing.)
-Replicates(d) == \E k \in 1..Len(d.tasks) : Len(d.tasks[k].nodes) > 0
-Quiet(hs) == \A n \in hs : LET d == Decide27(n, hs, {}, {}) IN ~Replicates(d) /\ d.del = "none"
-NoTasks(hs) == \A n \in hs : ~Replicates(Decide27(n, hs, {}, {}))
-N\* a check "replicates" when it hands the replicator a task with at least one candidate node. (With overlapping
-\* rules the code as found keeps calling the replicator with an EMPTY candidate list: a holder remembered from
-\* an earlier rule does not lower the shortage of a later rule - a phantom shortage that copies nothing.)
-Replicates(d) == \E k \in 1..Len(d.tasks) : Len(d.tasks[k].nodes) > 0
-Quiet(hs) == \A n \in hs : LET d == Decide27(n, hs, {}, {}) IN ~Replicates(d) /\ d.del = "none"
-NoTasks(hs) == \A n \in hs : ~Replicates(Decide27(n, hs, {}, {}))
-G\* a check "replicates" when it hands the replicator a task with at least one candidate node. (With overlapping
-\* rules the code as found keeps calling the replicator with an EMPTY candidate list: a holder remembered from
-\* an earlier rule does not lower the shortage of a later rule - a phantom shortage that copies nothing.)
-Replicates(d) == \E k \in 1..Len(d.tasks) : Len(d.tasks[k].nodes) > 0
-Quiet(hs) == \A n \in hs : LET d == Decide27(n, hs, {}, {}) IN ~Replicates(d) /\ d.del = "none"
-NoTasks(hs) == \A n \in hs : ~Replicates(Decide27(n, hs, {}, {}))
-E\* a check "replicates" when it hands the replicator a task with at least one candidate node. (With overlapping
-\* rules the code as found keeps calling the replicator with an EMPTY candidate list: a holder remembered from
-\* an earlier rule does not lower the shortage of a later rule - a phantom shortage that copies nothing.)
-Replicates(d) == \E k \in 1..Len(d.tasks) : Len(d.tasks[k].nodes) > 0
-Quiet(hs) == \A n \in hs : LET d == Decide27(n, hs, {}, {}) IN ~Replicates(d) /\ d.del = "none"
-NoTasks(hs) == \A n \in hs : ~Replicates(Decide27(n, hs, {}, {}))
-D\* a check "replicates" when it hands the replicator a task with at least one candidate node. (With overlapping
-\* rules the code as found keeps calling the replicator with an EMPTY candidate list: a holder remembered from
-\* an earlier rule does not lower the shortage of a later rule - a phantom shortage that copies nothing.)
-Replicates(d) == \E k \in 1..Len(d.tasks) : Len(d.tasks[k].nodes) > 0
-Quiet(hs) == \A n \in hs : LET d == Decide27(n, hs, {}, {}) IN ~Replicates(d) /\ d.del = "none"
-NoTasks(hs) == \A n \in hs : ~Replicates(Decide27(n, hs, {}, {}))
- \* a check "replicates" when it hands the replicator a task with at least one candidate node. (With overlapping
-\* rules the code as found keeps calling the replicator with an EMPTY candidate list: a holder remembered from
-\* an earlier rule does not lower the shortage of a later rule - a phantom shortage that copies nothing.)
-Replicates(d) == \E k \in 1..Len(d.tasks) : Len(d.tasks[k].nodes) > 0
-Quiet(hs) == \A n \in hs : LET d == Decide27(n, hs, {}, {}) IN ~Replicates(d) /\ d.del = "none"
-NoTasks(hs) == \A n \in hs : ~Replicates(Decide27(n, hs, {}, {}))
-r\* a check "replicates" when it hands the replicator a task with at least one candidate node. (With overlapping
-\* rules the code as found keeps calling the replicator with an EMPTY candidate list: a holder remembered from
-\* an earlier rule does not lower the shortage of a later rule - a phantom shortage that copies nothing.)
-Replicates(d) == \E k \in 1..Len(d.tasks) : Len(d.tasks[k].nodes) > 0
-Quiet(hs) == \A n \in hs : LET d == Decide27(n, hs, {}, {}) IN ~Replicates(d) /\ d.del = "none"
-NoTasks(hs) == \A n \in hs : ~Replicates(Decide27(n, hs, {}, {}))
-u\* a check "replicates" when it hands the replicator a task with at least one candidate node. (With overlapping
-\* rules the code as found keeps calling the replicator with an EMPTY candidate list: a holder remembered from
-\* an earlier rule does not lower the shortage of a later rule - a phantom shortage that copies nothing.)
-Replicates(d) == \E k \in 1..Len(d.tasks) : Len(d.tasks[k].nodes) > 0
-Quiet(hs) == \A n \in hs : LET d == Decide27(n, hs, {}, {}) IN ~Replicates(d) /\ d.del = "none"
-NoTasks(hs) == \A n \in hs : ~Replicates(Decide27(n, hs, {}, {}))
-l\* a check "replicates" when it hands the replicator a task with at least one candidate node. (With overlapping
-\* rules the code as found keeps calling the replicator with an EMPTY candidate list: a holder remembered from
-\* an earlier rule does not lower the shortage of a later rule - a phantom shortage that copies nothing.)
-Replicates(d) == \E k \in 1..Len(d.tasks) : Len(d.tasks[k].nodes) > 0
-Quiet(hs) == \A n \in hs : LET d == Decide27(n, hs, {}, {}) IN ~Replicates(d) /\ d.del = "none"
-NoTasks(hs) == \A n \in hs : ~Replicates(Decide27(n, hs, {}, {}))
-e\* a check "replicates" when it hands the replicator a task with at least one candidate node. (With overlapping
-\* rules the code as found keeps calling the replicator with an EMPTY candidate list: a holder remembered from
-\* an earlier rule does not lower the shortage of a later rule - a phantom shortage that copies nothing.)
-Replicates(d) == \E k \in 1..Len(d.tasks) : Len(d.tasks[k].nodes) > 0
-Quiet(hs) == \A n \in hs : LET d == Decide27(n, hs, {}, {}) IN ~Replicates(d) /\ d.del = "none"
-NoTasks(hs) == \A n \in hs : ~Replicates(Decide27(n, hs, {}, {}))
-s\* a check "replicates" when it hands the replicator a task with at least one candidate node. (With overlapping
-\* rules the code as found keeps calling the replicator with an EMPTY candidate list: a holder remembered from
-\* an earlier rule does not lower the shortage of a later rule - a phantom shortage that copies nothing.)
-Replicates(d) == \E k \in 1..Len(d.tasks) : Len(d.tasks[k].nodes) > 0
-Quiet(hs) == \A n \in hs : LET d == Decide27(n, hs, {}, {}) IN ~Replicates(d) /\ d.del = "none"
-NoTasks(hs) == \A n \in hs : ~Replicates(Decide27(n, hs, {}, {}))
-
-\* a check "replicates" when it hands the replicator a task with at least one candidate node. (With overlapping
-\* rules the code as found keeps calling the replicator with an EMPTY candidate list: a holder remembered from
-\* an earlier rule does not lower the shortage of a later rule - a phantom shortage that copies nothing.)
-Replicates(d) == \E k \in 1..Len(d.tasks) : Len(d.tasks[k].nodes) > 0
-Quiet(hs) == \A n \in hs : LET d == Decide27(n, hs, {}, {}) IN ~Replicates(d) /\ d.del = "none"
-NoTasks(hs) == \A n \in hs : ~Replicates(Decide27(n, hs, {}, {}))
-
-\* a check "replicates" when it hands the replicator a task with at least one candidate node. (With overlapping
-\* rules the code as found keeps calling the replicator with an EMPTY candidate list: a holder remembered from
-\* an earlier rule does not lower the shortage of a later rule - a phantom shortage that copies nothing.)
-Replicates(d) == \E k \in 1..Len(d.tasks) : Len(d.tasks[k].nodes) > 0
-Quiet(hs) == \A n \in hs : LET d == Decide27(n, hs, {}, {}) IN ~Replicates(d) /\ d.del = "none"
-NoTasks(hs) == \A n \in hs : ~Replicates(Decide27(n, hs, {}, {}))
-\\* a check "replicates" when it hands the replicator a task with at least one candidate node. (With overlapping
-\* rules the code as found keeps calling the replicator with an EMPTY candidate list: a holder remembered from
-\* an earlier rule does not lower the shortage of a later rule - a phantom shortage that copies nothing.)
-Replicates(d) == \E k \in 1..Len(d.tasks) : Len(d.tasks[k].nodes) > 0
-Quiet(hs) == \A n \in hs : LET d == Decide27(n, hs, {}, {}) IN ~Replicates(d) /\ d.del = "none"
-NoTasks(hs) == \A n \in hs : ~Replicates(Decide27(n, hs, {}, {}))
-*\* a check "replicates" when it hands the replicator a task with at least one candidate node. (With overlapping
-\* rules the code as found keeps calling the replicator with an EMPTY candidate list: a holder remembered from
-\* an earlier rule does not lower the shortage of a later rule - a phantom shortage that copies nothing.)
-Replicates(d) == \E k \in 1..Len(d.tasks) : Len(d.tasks[k].nodes) > 0
-Quiet(hs) == \A n \in hs : LET d == Decide27(n, hs, {}, {}) IN ~Replicates(d) /\ d.del = "none"
-NoTasks(hs) == \A n \in hs : ~Replicates(Decide27(n, hs, {}, {}))
- \* a check "replicates" when it hands the replicator a task with at least one candidate node. (With overlapping
-\* rules the code as found keeps calling the replicator with an EMPTY candidate list: a holder remembered from
-\* an earlier rule does not lower the shortage of a later rule - a phantom shortage that copies nothing.)
-Replicates(d) == \E k \in 1..Len(d.tasks) : Len(d.tasks[k].nodes) > 0
-Quiet(hs) == \A n \in hs : LET d == Decide27(n, hs, {}, {}) IN ~Replicates(d) /\ d.del = "none"
-NoTasks(hs) == \A n \in hs : ~Replicates(Decide27(n, hs, {}, {}))
-u\* a check "replicates" when it hands the replicator a task with at least one candidate node. (With overlapping
-\* rules the code as found keeps calling the replicator with an EMPTY candidate list: a holder remembered from
-\* an earlier rule does not lower the shortage of a later rule - a phantom shortage that copies nothing.)
-Replicates(d) == \E k \in 1..Len(d.tasks) : Len(d.tasks[k].nodes) > 0
-Quiet(hs) == \A n \in hs : LET d == Decide27(n, hs, {}, {}) IN ~Replicates(d) /\ d.del = "none"
-NoTasks(hs) == \A n \in hs : ~Replicates(Decide27(n, hs, {}, {}))
-n\* a check "replicates" when it hands the replicator a task with at least one candidate node. (With overlapping
-\* rules the code as found keeps calling the replicator with an EMPTY candidate list: a holder remembered from
-\* an earlier rule does not lower the shortage of a later rule - a phantom shortage that copies nothing.)
-Replicates(d) == \E k \in 1..Len(d.tasks) : Len(d.tasks[k].nodes) > 0
-Quiet(hs) == \A n \in hs : LET d == Decide27(n, hs, {}, {}) IN ~Replicates(d) /\ d.del = "none"
-NoTasks(hs) == \A n \in hs : ~Replicates(Decide27(n, hs, {}, {}))
-o\* a check "replicates" when it hands the replicator a task with at least one candidate node. (With overlapping
-\* rules the code as found keeps calling the replicator with an EMPTY candidate list: a holder remembered from
-\* an earlier rule does not lower the shortage of a later rule - a phantom shortage that copies nothing.)
-Replicates(d) == \E k \in 1..Len(d.tasks) : Len(d.tasks[k].nodes) > 0
-Quiet(hs) == \A n \in hs : LET d == Decide27(n, hs, {}, {}) IN ~Replicates(d) /\ d.del = "none"
-NoTasks(hs) == \A n \in hs : ~Replicates(Decide27(n, hs, {}, {}))
-r\* a check "replicates" when it hands the replicator a task with at least one candidate node. (With overlapping
-\* rules the code as found keeps calling the replicator with an EMPTY candidate list: a holder remembered from
-\* an earlier rule does not lower the shortage of a later rule - a phantom shortage that copies nothing.)
-Replicates(d) == \E k \in 1..Len(d.tasks) : Len(d.tasks[k].nodes) > 0
-Quiet(hs) == \A n \in hs : LET d == Decide27(n, hs, {}, {}) IN ~Replicates(d) /\ d.del = "none"
-NoTasks(hs) == \A n \in hs : ~Replicates(Decide27(n, hs, {}, {}))
-d\* a check "replicates" when it hands the replicator a task with at least one candidate node. (With overlapping
-\* rules the code as found keeps calling the replicator with an EMPTY candidate list: a holder remembered from
-\* an earlier rule does not lower the shortage of a later rule - a phantom shortage that copies nothing.)
-Replicates(d) == \E k \in 1..Len(d.tasks) : Len(d.tasks[k].nodes) > 0
-Quiet(hs) == \A n \in hs : LET d == Decide27(n, hs, {}, {}) IN ~Replicates(d) /\ d.del = "none"
-NoTasks(hs) == \A n \in hs : ~Replicates(Decide27(n, hs, {}, {}))
-e\* a check "replicates" when it hands the replicator a task with at least one candidate node. (With overlapping
-\* rules the code as found keeps calling the replicator with an EMPTY candidate list: a holder remembered from
-\* an earlier rule does not lower the shortage of a later rule - a phantom shortage that copies nothing.)
-Replicates(d) == \E k \in 1..Len(d.tasks) : Len(d.tasks[k].nodes) > 0
-Quiet(hs) == \A n \in hs : LET d == Decide27(n, hs, {}, {}) IN ~Replicates(d) /\ d.del = "none"
-NoTasks(hs) == \A n \in hs : ~Replicates(Decide27(n, hs, {}, {}))
-r\* a check "replicates" when it hands the replicator a task with at least one candidate node. (With overlapping
-\* rules the code as found keeps calling the replicator with an EMPTY candidate list: a holder remembered from
-\* an earlier rule does not lower the shortage of a later rule - a phantom shortage that copies nothing.)
-Replicates(d) == \E k \in 1..Len(d.tasks) : Len(d.tasks[k].nodes) > 0
-Quiet(hs) == \A n \in hs : LET d == Decide27(n, hs, {}, {}) IN ~Replicates(d) /\ d.del = "none"
-NoTasks(hs) == \A n \in hs : ~Replicates(Decide27(n, hs, {}, {}))
-e\* a check "replicates" when it hands the replicator a task with at least one candidate node. (With overlapping
-\* rules the code as found keeps calling the replicator with an EMPTY candidate list: a holder remembered from
-\* an earlier rule does not lower the shortage of a later rule - a phantom shortage that copies nothing.)
-Replicates(d) == \E k \in 1..Len(d.tasks) : Len(d.tasks[k].nodes) > 0
-Quiet(hs) == \A n \in hs : LET d == Decide27(n, hs, {}, {}) IN ~Replicates(d) /\ d.del = "none"
-NoTasks(hs) == \A n \in hs : ~Replicates(Decide27(n, hs, {}, {}))
-d\* a check "replicates" when it hands the replicator a task with at least one candidate node. (With overlapping
-\* rules the code as found keeps calling the replicator with an EMPTY candidate list: a holder remembered from
-\* an earlier rule does not lower the shortage of a later rule - a phantom shortage that copies nothing.)
-Replicates(d) == \E k \in 1..Len(d.tasks) : Len(d.tasks[k].nodes) > 0
-Quiet(hs) == \A n \in hs : LET d == Decide27(n, hs, {}, {}) IN ~Replicates(d) /\ d.del = "none"
-NoTasks(hs) == \A n \in hs : ~Replicates(Decide27(n, hs, {}, {}))
- \* a check "replicates" when it hands the replicator a task with at least one candidate node. (With overlapping
-\* rules the code as found keeps calling the replicator with an EMPTY candidate list: a holder remembered from
-\* an earlier rule does not lower the shortage of a later rule - a phantom shortage that copies nothing.)
-Replicates(d) == \E k \in 1..Len(d.tasks) : Len(d.tasks[k].nodes) > 0
-Quiet(hs) == \A n \in hs : LET d == Decide27(n, hs, {}, {}) IN ~Replicates(d) /\ d.del = "none"
-NoTasks(hs) == \A n \in hs : ~Replicates(Decide27(n, hs, {}, {}))
-c\* a check "replicates" when it hands the replicator a task with at least one candidate node. (With overlapping
-\* rules the code as found keeps calling the replicator with an EMPTY candidate list: a holder remembered from
-\* an earlier rule does not lower the shortage of a later rule - a phantom shortage that copies nothing.)
-Replicates(d) == \E k \in 1..Len(d.tasks) : Len(d.tasks[k].nodes) > 0
-Quiet(hs) == \A n \in hs : LET d == Decide27(n, hs, {}, {}) IN ~Replicates(d) /\ d.del = "none"
-NoTasks(hs) == \A n \in hs : ~Replicates(Decide27(n, hs, {}, {}))
-h\* a check "replicates" when it hands the replicator a task with at least one candidate node. (With overlapping
-\* rules the code as found keeps calling the replicator with an EMPTY candidate list: a holder remembered from
-\* an earlier rule does not lower the shortage of a later rule - a phantom shortage that copies nothing.)
-Replicates(d) == \E k \in 1..Len(d.tasks) : Len(d.tasks[k].nodes) > 0
-Quiet(hs) == \A n \in hs : LET d == Decide27(n, hs, {}, {}) IN ~Replicates(d) /\ d.del = "none"
-NoTasks(hs) == \A n \in hs : ~Replicates(Decide27(n, hs, {}, {}))
-e\* a check "replicates" when it hands the replicator a task with at least one candidate node. (With overlapping
-\* rules the code as found keeps calling the replicator with an EMPTY candidate list: a holder remembered from
-\* an earlier rule does not lower the shortage of a later rule - a phantom shortage that copies nothing.)
-Replicates(d) == \E k \in 1..Len(d.tasks) : Len(d.tasks[k].nodes) > 0
-Quiet(hs) == \A n \in hs : LET d == Decide27(n, hs, {}, {}) IN ~Replicates(d) /\ d.del = "none"
-NoTasks(hs) == \A n \in hs : ~Replicates(Decide27(n, hs, {}, {}))
-c\* a check "replicates" when it hands the replicator a task with at least one candidate node. (With overlapping
-\* rules the code as found keeps calling the replicator with an EMPTY candidate list: a holder remembered from
-\* an earlier rule does not lower the shortage of a later rule - a phantom shortage that copies nothing.)
-Replicates(d) == \E k \in 1..Len(d.tasks) : Len(d.tasks[k].nodes) > 0
-Quiet(hs) == \A n \in hs : LET d == Decide27(n, hs, {}, {}) IN ~Replicates(d) /\ d.del = "none"
-NoTasks(hs) == \A n \in hs : ~Replicates(Decide27(n, hs, {}, {}))
-k\* a check "replicates" when it hands the replicator a task with at least one candidate node. (With overlapping
-\* rules the code as found keeps calling the replicator with an EMPTY candidate list: a holder remembered from
-\* an earlier rule does not lower the shortage of a later rule - a phantom shortage that copies nothing.)
-Replicates(d) == \E k \in 1..Len(d.tasks) : Len(d.tasks[k].nodes) > 0
-Quiet(hs) == \A n \in hs : LET d == Decide27(n, hs, {}, {}) IN ~Replicates(d) /\ d.del = "none"
-NoTasks(hs) == \A n \in hs : ~Replicates(Decide27(n, hs, {}, {}))
-s\* a check "replicates" when it hands the replicator a task with at least one candidate node. (With overlapping
-\* rules the code as found keeps calling the replicator with an EMPTY candidate list: a holder remembered from
-\* an earlier rule does not lower the shortage of a later rule - a phantom shortage that copies nothing.)
-Replicates(d) == \E k \in 1..Len(d.tasks) : Len(d.tasks[k].nodes) > 0
-Quiet(hs) == \A n \in hs : LET d == Decide27(n, hs, {}, {}) IN ~Replicates(d) /\ d.del = "none"
-NoTasks(hs) == \A n \in hs : ~Replicates(Decide27(n, hs, {}, {}))
- \* a check "replicates" when it hands the replicator a task with at least one candidate node. (With overlapping
-\* rules the code as found keeps calling the replicator with an EMPTY candidate list: a holder remembered from
-\* an earlier rule does not lower the shortage of a later rule - a phantom shortage that copies nothing.)
-Replicates(d) == \E k \in 1..Len(d.tasks) : Len(d.tasks[k].nodes) > 0
-Quiet(hs) == \A n \in hs : LET d == Decide27(n, hs, {}, {}) IN ~Replicates(d) /\ d.del = "none"
-NoTasks(hs) == \A n \in hs : ~Replicates(Decide27(n, hs, {}, {}))
-(\* a check "replicates" when it hands the replicator a task with at least one candidate node. (With overlapping
-\* rules the code as found keeps calling the replicator with an EMPTY candidate list: a holder remembered from
-\* an earlier rule does not lower the shortage of a later rule - a phantom shortage that copies nothing.)
-Replicates(d) == \E k \in 1..Len(d.tasks) : Len(d.tasks[k].nodes) > 0
-Quiet(hs) == \A n \in hs : LET d == Decide27(n, hs, {}, {}) IN ~Replicates(d) /\ d.del = "none"
-NoTasks(hs) == \A n \in hs : ~Replicates(Decide27(n, hs, {}, {}))
-l\* a check "replicates" when it hands the replicator a task with at least one candidate node. (With overlapping
-\* rules the code as found keeps calling the replicator with an EMPTY candidate list: a holder remembered from
-\* an earlier rule does not lower the shortage of a later rule - a phantom shortage that copies nothing.)
-Replicates(d) == \E k \in 1..Len(d.tasks) : Len(d.tasks[k].nodes) > 0
-Quiet(hs) == \A n \in hs : LET d == Decide27(n, hs, {}, {}) IN ~Replicates(d) /\ d.del = "none"
-NoTasks(hs) == \A n \in hs : ~Replicates(Decide27(n, hs, {}, {}))
-i\* a check "replicates" when it hands the replicator a task with at least one candidate node. (With overlapping
-\* rules the code as found keeps calling the replicator with an EMPTY candidate list: a holder remembered from
-\* an earlier rule does not lower the shortage of a later rule - a phantom shortage that copies nothing.)
-Replicates(d) == \E k \in 1..Len(d.tasks) : Len(d.tasks[k].nodes) > 0
-Quiet(hs) == \A n \in hs : LET d == Decide27(n, hs, {}, {}) IN ~Replicates(d) /\ d.del = "none"
-NoTasks(hs) == \A n \in hs : ~Replicates(Decide27(n, hs, {}, {}))
-v\* a check "replicates" when it hands the replicator a task with at least one candidate node. (With overlapping
-\* rules the code as found keeps calling the replicator with an EMPTY candidate list: a holder remembered from
-\* an earlier rule does not lower the shortage of a later rule - a phantom shortage that copies nothing.)
-Replicates(d) == \E k \in 1..Len(d.tasks) : Len(d.tasks[k].nodes) > 0
-Quiet(hs) == \A n \in hs : LET d == Decide27(n, hs, {}, {}) IN ~Replicates(d) /\ d.del = "none"
-NoTasks(hs) == \A n \in hs : ~Replicates(Decide27(n, hs, {}, {}))
-e\* a check "replicates" when it hands the replicator a task with at least one candidate node. (With overlapping
-\* rules the code as found keeps calling the replicator with an EMPTY candidate list: a holder remembered from
-\* an earlier rule does not lower the shortage of a later rule - a phantom shortage that copies nothing.)
-Replicates(d) == \E k \in 1..Len(d.tasks) : Len(d.tasks[k].nodes) > 0
-Quiet(hs) == \A n \in hs : LET d == Decide27(n, hs, {}, {}) IN ~Replicates(d) /\ d.del = "none"
-NoTasks(hs) == \A n \in hs : ~Replicates(Decide27(n, hs, {}, {}))
-n\* a check "replicates" when it hands the replicator a task with at least one candidate node. (With overlapping
-\* rules the code as found keeps calling the replicator with an EMPTY candidate list: a holder remembered from
-\* an earlier rule does not lower the shortage of a later rule - a phantom shortage that copies nothing.)
-Replicates(d) == \E k \in 1..Len(d.tasks) : Len(d.tasks[k].nodes) > 0
-Quiet(hs) == \A n \in hs : LET d == Decide27(n, hs, {}, {}) IN ~Replicates(d) /\ d.del = "none"
-NoTasks(hs) == \A n \in hs : ~Replicates(Decide27(n, hs, {}, {}))
-e\* a check "replicates" when it hands the replicator a task with at least one candidate node. (With overlapping
-\* rules the code as found keeps calling the replicator with an EMPTY candidate list: a holder remembered from
-\* an earlier rule does not lower the shortage of a later rule - a phantom shortage that copies nothing.)
-Replicates(d) == \E k \in 1..Len(d.tasks) : Len(d.tasks[k].nodes) > 0
-Quiet(hs) == \A n \in hs : LET d == Decide27(n, hs, {}, {}) IN ~Replicates(d) /\ d.del = "none"
-NoTasks(hs) == \A n \in hs : ~Replicates(Decide27(n, hs, {}, {}))
-s\* a check "replicates" when it hands the replicator a task with at least one candidate node. (With overlapping
-\* rules the code as found keeps calling the replicator with an EMPTY candidate list: a holder remembered from
-\* an earlier rule does not lower the shortage of a later rule - a phantom shortage that copies nothing.)
-Replicates(d) == \E k \in 1..Len(d.tasks) : Len(d.tasks[k].nodes) > 0
-Quiet(hs) == \A n \in hs : LET d == Decide27(n, hs, {}, {}) IN ~Replicates(d) /\ d.del = "none"
-NoTasks(hs) == \A n \in hs : ~Replicates(Decide27(n, hs, {}, {}))
-s\* a check "replicates" when it hands the replicator a task with at least one candidate node. (With overlapping
-\* rules the code as found keeps calling the replicator with an EMPTY candidate list: a holder remembered from
-\* an earlier rule does not lower the shortage of a later rule - a phantom shortage that copies nothing.)
-Replicates(d) == \E k \in 1..Len(d.tasks) : Len(d.tasks[k].nodes) > 0
-Quiet(hs) == \A n \in hs : LET d == Decide27(n, hs, {}, {}) IN ~Replicates(d) /\ d.del = "none"
-NoTasks(hs) == \A n \in hs : ~Replicates(Decide27(n, hs, {}, {}))
-)\* a check "replicates" when it hands the replicator a task with at least one candidate node. (With overlapping
-\* rules the code as found keeps calling the replicator with an EMPTY candidate list: a holder remembered from
-\* an earlier rule does not lower the shortage of a later rule - a phantom shortage that copies nothing.)
-Replicates(d) == \E k \in 1..Len(d.tasks) : Len(d.tasks[k].nodes) > 0
-Quiet(hs) == \A n \in hs : LET d == Decide27(n, hs, {}, {}) IN ~Replicates(d) /\ d.del = "none"
-NoTasks(hs) == \A n \in hs : ~Replicates(Decide27(n, hs, {}, {}))
- \* a check "replicates" when it hands the replicator a task with at least one candidate node. (With overlapping
-\* rules the code as found keeps calling the replicator with an EMPTY candidate list: a holder remembered from
-\* an earlier rule does not lower the shortage of a later rule - a phantom shortage that copies nothing.)
-Replicates(d) == \E k \in 1..Len(d.tasks) : Len(d.tasks[k].nodes) > 0
-Quiet(hs) == \A n \in hs : LET d == Decide27(n, hs, {}, {}) IN ~Replicates(d) /\ d.del = "none"
-NoTasks(hs) == \A n \in hs : ~Replicates(Decide27(n, hs, {}, {}))
-.\* a check "replicates" when it hands the replicator a task with at least one candidate node. (With overlapping
-\* rules the code as found keeps calling the replicator with an EMPTY candidate list: a holder remembered from
-\* an earlier rule does not lower the shortage of a later rule - a phantom shortage that copies nothing.)
-Replicates(d) == \E k \in 1..Len(d.tasks) : Len(d.tasks[k].nodes) > 0
-Quiet(hs) == \A n \in hs : LET d == Decide27(n, hs, {}, {}) IN ~Replicates(d) /\ d.del = "none"
-NoTasks(hs) == \A n \in hs : ~Replicates(Decide27(n, hs, {}, {}))
-.\* a check "replicates" when it hands the replicator a task with at least one candidate node. (With overlapping
-\* rules the code as found keeps calling the replicator with an EMPTY candidate list: a holder remembered from
-\* an earlier rule does not lower the shortage of a later rule - a phantom shortage that copies nothing.)
-Replicates(d) == \E k \in 1..Len(d.tasks) : Len(d.tasks[k].nodes) > 0
-Quiet(hs) == \A n \in hs : LET d == Decide27(n, hs, {}, {}) IN ~Replicates(d) /\ d.del = "none"
-NoTasks(hs) == \A n \in hs : ~Replicates(Decide27(n, hs, {}, {}))
-.\* a check "replicates" when it hands the replicator a task with at least one candidate node. (With overlapping
-\* rules the code as found keeps calling the replicator with an EMPTY candidate list: a holder remembered from
-\* an earlier rule does not lower the shortage of a later rule - a phantom shortage that copies nothing.)
-Replicates(d) == \E k \in 1..Len(d.tasks) : Len(d.tasks[k].nodes) > 0
-Quiet(hs) == \A n \in hs : LET d == Decide27(n, hs, {}, {}) IN ~Replicates(d) /\ d.del = "none"
-NoTasks(hs) == \A n \in hs : ~Replicates(Decide27(n, hs, {}, {}))
-
-\* a check "replicates" when it hands the replicator a task with at least one candidate node. (With overlapping
-\* rules the code as found keeps calling the replicator with an EMPTY candidate list: a holder remembered from
-\* an earlier rule does not lower the shortage of a later rule - a phantom shortage that copies nothing.)
-Replicates(d) == \E k \in 1..Len(d.tasks) : Len(d.tasks[k].nodes) > 0
-Quiet(hs) == \A n \in hs : LET d == Decide27(n, hs, {}, {}) IN ~Replicates(d) /\ d.del = "none"
-NoTasks(hs) == \A n \in hs : ~Replicates(Decide27(n, hs, {}, {}))
-R\* a check "replicates" when it hands the replicator a task with at least one candidate node. (With overlapping
-\* rules the code as found keeps calling the replicator with an EMPTY candidate list: a holder remembered from
-\* an earlier rule does not lower the shortage of a later rule - a phantom shortage that copies nothing.)
-Replicates(d) == \E k \in 1..Len(d.tasks) : Len(d.tasks[k].nodes) > 0
-Quiet(hs) == \A n \in hs : LET d == Decide27(n, hs, {}, {}) IN ~Replicates(d) /\ d.del = "none"
-NoTasks(hs) == \A n \in hs : ~Replicates(Decide27(n, hs, {}, {}))
-u\* a check "replicates" when it hands the replicator a task with at least one candidate node. (With overlapping
-\* rules the code as found keeps calling the replicator with an EMPTY candidate list: a holder remembered from
-\* an earlier rule does not lower the shortage of a later rule - a phantom shortage that copies nothing.)
-Replicates(d) == \E k \in 1..Len(d.tasks) : Len(d.tasks[k].nodes) > 0
-Quiet(hs) == \A n \in hs : LET d == Decide27(n, hs, {}, {}) IN ~Replicates(d) /\ d.del = "none"
-NoTasks(hs) == \A n \in hs : ~Replicates(Decide27(n, hs, {}, {}))
-n\* a check "replicates" when it hands the replicator a task with at least one candidate node. (With overlapping
-\* rules the code as found keeps calling the replicator with an EMPTY candidate list: a holder remembered from
-\* an earlier rule does not lower the shortage of a later rule - a phantom shortage that copies nothing.)
-Replicates(d) == \E k \in 1..Len(d.tasks) : Len(d.tasks[k].nodes) > 0
-Quiet(hs) == \A n \in hs : LET d == Decide27(n, hs, {}, {}) IN ~Replicates(d) /\ d.del = "none"
-NoTasks(hs) == \A n \in hs : ~Replicates(Decide27(n, hs, {}, {}))
-(\* a check "replicates" when it hands the replicator a task with at least one candidate node. (With overlapping
-\* rules the code as found keeps calling the replicator with an EMPTY candidate list: a holder remembered from
-\* an earlier rule does not lower the shortage of a later rule - a phantom shortage that copies nothing.)
-Replicates(d) == \E k \in 1..Len(d.tasks) : Len(d.tasks[k].nodes) > 0
-Quiet(hs) == \A n \in hs : LET d == Decide27(n, hs, {}, {}) IN ~Replicates(d) /\ d.del = "none"
-NoTasks(hs) == \A n \in hs : ~Replicates(Decide27(n, hs, {}, {}))
-n\* a check "replicates" when it hands the replicator a task with at least one candidate node. (With overlapping
-\* rules the code as found keeps calling the replicator with an EMPTY candidate list: a holder remembered from
-\* an earlier rule does not lower the shortage of a later rule - a phantom shortage that copies nothing.)
-Replicates(d) == \E k \in 1..Len(d.tasks) : Len(d.tasks[k].nodes) > 0
-Quiet(hs) == \A n \in hs : LET d == Decide27(n, hs, {}, {}) IN ~Replicates(d) /\ d.del = "none"
-NoTasks(hs) == \A n \in hs : ~Replicates(Decide27(n, hs, {}, {}))
-)\* a check "replicates" when it hands the replicator a task with at least one candidate node. (With overlapping
-\* rules the code as found keeps calling the replicator with an EMPTY candidate list: a holder remembered from
-\* an earlier rule does not lower the shortage of a later rule - a phantom shortage that copies nothing.)
-Replicates(d) == \E k \in 1..Len(d.tasks) : Len(d.tasks[k].nodes) > 0
-Quiet(hs) == \A n \in hs : LET d == Decide27(n, hs, {}, {}) IN ~Replicates(d) /\ d.del = "none"
-NoTasks(hs) == \A n \in hs : ~Replicates(Decide27(n, hs, {}, {}))
- \* a check "replicates" when it hands the replicator a task with at least one candidate node. (With overlapping
-\* rules the code as found keeps calling the replicator with an EMPTY candidate list: a holder remembered from
-\* an earlier rule does not lower the shortage of a later rule - a phantom shortage that copies nothing.)
-Replicates(d) == \E k \in 1..Len(d.tasks) : Len(d.tasks[k].nodes) > 0
-Quiet(hs) == \A n \in hs : LET d == Decide27(n, hs, {}, {}) IN ~Replicates(d) /\ d.del = "none"
-NoTasks(hs) == \A n \in hs : ~Replicates(Decide27(n, hs, {}, {}))
-=\* a check "replicates" when it hands the replicator a task with at least one candidate node. (With overlapping
-\* rules the code as found keeps calling the replicator with an EMPTY candidate list: a holder remembered from
-\* an earlier rule does not lower the shortage of a later rule - a phantom shortage that copies nothing.)
-Replicates(d) == \E k \in 1..Len(d.tasks) : Len(d.tasks[k].nodes) > 0
-Quiet(hs) == \A n \in hs : LET d == Decide27(n, hs, {}, {}) IN ~Replicates(d) /\ d.del = "none"
-NoTasks(hs) == \A n \in hs : ~Replicates(Decide27(n, hs, {}, {}))
-=\* a check "replicates" when it hands the replicator a task with at least one candidate node. (With overlapping
-\* rules the code as found keeps calling the replicator with an EMPTY candidate list: a holder remembered from
-\* an earlier rule does not lower the shortage of a later rule - a phantom shortage that copies nothing.)
-Replicates(d) == \E k \in 1..Len(d.tasks) : Len(d.tasks[k].nodes) > 0
-Quiet(hs) == \A n \in hs : LET d == Decide27(n, hs, {}, {}) IN ~Replicates(d) /\ d.del = "none"
-NoTasks(hs) == \A n \in hs : ~Replicates(Decide27(n, hs, {}, {}))
- \* a check "replicates" when it hands the replicator a task with at least one candidate node. (With overlapping
-\* rules the code as found keeps calling the replicator with an EMPTY candidate list: a holder remembered from
-\* an earlier rule does not lower the shortage of a later rule - a phantom shortage that copies nothing.)
-Replicates(d) == \E k \in 1..Len(d.tasks) : Len(d.tasks[k].nodes) > 0
-Quiet(hs) == \A n \in hs : LET d == Decide27(n, hs, {}, {}) IN ~Replicates(d) /\ d.del = "none"
-NoTasks(hs) == \A n \in hs : ~Replicates(Decide27(n, hs, {}, {}))
-C\* a check "replicates" when it hands the replicator a task with at least one candidate node. (With overlapping
-\* rules the code as found keeps calling the replicator with an EMPTY candidate list: a holder remembered from
-\* an earlier rule does not lower the shortage of a later rule - a phantom shortage that copies nothing.)
-Replicates(d) == \E k \in 1..Len(d.tasks) : Len(d.tasks[k].nodes) > 0
-Quiet(hs) == \A n \in hs : LET d == Decide27(n, hs, {}, {}) IN ~Replicates(d) /\ d.del = "none"
-NoTasks(hs) == \A n \in hs : ~Replicates(Decide27(n, hs, {}, {}))
-h\* a check "replicates" when it hands the replicator a task with at least one candidate node. (With overlapping
-\* rules the code as found keeps calling the replicator with an EMPTY candidate list: a holder remembered from
-\* an earlier rule does not lower the shortage of a later rule - a phantom shortage that copies nothing.)
-Replicates(d) == \E k \in 1..Len(d.tasks) : Len(d.tasks[k].nodes) > 0
-Quiet(hs) == \A n \in hs : LET d == Decide27(n, hs, {}, {}) IN ~Replicates(d) /\ d.del = "none"
-NoTasks(hs) == \A n \in hs : ~Replicates(Decide27(n, hs, {}, {}))
-e\* a check "replicates" when it hands the replicator a task with at least one candidate node. (With overlapping
-\* rules the code as found keeps calling the replicator with an EMPTY candidate list: a holder remembered from
-\* an earlier rule does not lower the shortage of a later rule - a phantom shortage that copies nothing.)
-Replicates(d) == \E k \in 1..Len(d.tasks) : Len(d.tasks[k].nodes) > 0
-Quiet(hs) == \A n \in hs : LET d == Decide27(n, hs, {}, {}) IN ~Replicates(d) /\ d.del = "none"
-NoTasks(hs) == \A n \in hs : ~Replicates(Decide27(n, hs, {}, {}))
-c\* a check "replicates" when it hands the replicator a task with at least one candidate node. (With overlapping
-\* rules the code as found keeps calling the replicator with an EMPTY candidate list: a holder remembered from
-\* an earlier rule does not lower the shortage of a later rule - a phantom shortage that copies nothing.)
-Replicates(d) == \E k \in 1..Len(d.tasks) : Len(d.tasks[k].nodes) > 0
-Quiet(hs) == \A n \in hs : LET d == Decide27(n, hs, {}, {}) IN ~Replicates(d) /\ d.del = "none"
-NoTasks(hs) == \A n \in hs : ~Replicates(Decide27(n, hs, {}, {}))
-k\* a check "replicates" when it hands the replicator a task with at least one candidate node. (With overlapping
-\* rules the code as found keeps calling the replicator with an EMPTY candidate list: a holder remembered from
-\* an earlier rule does not lower the shortage of a later rule - a phantom shortage that copies nothing.)
-Replicates(d) == \E k \in 1..Len(d.tasks) : Len(d.tasks[k].nodes) > 0
-Quiet(hs) == \A n \in hs : LET d == Decide27(n, hs, {}, {}) IN ~Replicates(d) /\ d.del = "none"
-NoTasks(hs) == \A n \in hs : ~Replicates(Decide27(n, hs, {}, {}))
-(\* a check "replicates" when it hands the replicator a task with at least one candidate node. (With overlapping
-\* rules the code as found keeps calling the replicator with an EMPTY candidate list: a holder remembered from
-\* an earlier rule does not lower the shortage of a later rule - a phantom shortage that copies nothing.)
-Replicates(d) == \E k \in 1..Len(d.tasks) : Len(d.tasks[k].nodes) > 0
-Quiet(hs) == \A n \in hs : LET d == Decide27(n, hs, {}, {}) IN ~Replicates(d) /\ d.del = "none"
-NoTasks(hs) == \A n \in hs : ~Replicates(Decide27(n, hs, {}, {}))
-n\* a check "replicates" when it hands the replicator a task with at least one candidate node. (With overlapping
-\* rules the code as found keeps calling the replicator with an EMPTY candidate list: a holder remembered from
-\* an earlier rule does not lower the shortage of a later rule - a phantom shortage that copies nothing.)
-Replicates(d) == \E k \in 1..Len(d.tasks) : Len(d.tasks[k].nodes) > 0
-Quiet(hs) == \A n \in hs : LET d == Decide27(n, hs, {}, {}) IN ~Replicates(d) /\ d.del = "none"
-NoTasks(hs) == \A n \in hs : ~Replicates(Decide27(n, hs, {}, {}))
-,\* a check "replicates" when it hands the replicator a task with at least one candidate node. (With overlapping
-\* rules the code as found keeps calling the replicator with an EMPTY candidate list: a holder remembered from
-\* an earlier rule does not lower the shortage of a later rule - a phantom shortage that copies nothing.)
-Replicates(d) == \E k \in 1..Len(d.tasks) : Len(d.tasks[k].nodes) > 0
-Quiet(hs) == \A n \in hs : LET d == Decide27(n, hs, {}, {}) IN ~Replicates(d) /\ d.del = "none"
-NoTasks(hs) == \A n \in hs : ~Replicates(Decide27(n, hs, {}, {}))
- \* a check "replicates" when it hands the replicator a task with at least one candidate node. (With overlapping
-\* rules the code as found keeps calling the replicator with an EMPTY candidate list: a holder remembered from
-\* an earlier rule does not lower the shortage of a later rule - a phantom shortage that copies nothing.)
-Replicates(d) == \E k \in 1..Len(d.tasks) : Len(d.tasks[k].nodes) > 0
-Quiet(hs) == \A n \in hs : LET d == Decide27(n, hs, {}, {}) IN ~Replicates(d) /\ d.del = "none"
-NoTasks(hs) == \A n \in hs : ~Replicates(Decide27(n, hs, {}, {}))
-{\* a check "replicates" when it hands the replicator a task with at least one candidate node. (With overlapping
-\* rules the code as found keeps calling the replicator with an EMPTY candidate list: a holder remembered from
-\* an earlier rule does not lower the shortage of a later rule - a phantom shortage that copies nothing.)
-Replicates(d) == \E k \in 1..Len(d.tasks) : Len(d.tasks[k].nodes) > 0
-Quiet(hs) == \A n \in hs : LET d == Decide27(n, hs, {}, {}) IN ~Replicates(d) /\ d.del = "none"
-NoTasks(hs) == \A n \in hs : ~Replicates(Decide27(n, hs, {}, {}))
-}\* a check "replicates" when it hands the replicator a task with at least one candidate node. (With overlapping
-\* rules the code as found keeps calling the replicator with an EMPTY candidate list: a holder remembered from
-\* an earlier rule does not lower the shortage of a later rule - a phantom shortage that copies nothing.)
-Replicates(d) == \E k \in 1..Len(d.tasks) : Len(d.tasks[k].nodes) > 0
-Quiet(hs) == \A n \in hs : LET d == Decide27(n, hs, {}, {}) IN ~Replicates(d) /\ d.del = "none"
-NoTasks(hs) == \A n \in hs : ~Replicates(Decide27(n, hs, {}, {}))
-,\* a check "replicates" when it hands the replicator a task with at least one candidate node. (With overlapping
-\* rules the code as found keeps calling the replicator with an EMPTY candidate list: a holder remembered from
-\* an earlier rule does not lower the shortage of a later rule - a phantom shortage that copies nothing.)
-Replicates(d) == \E k \in 1..Len(d.tasks) : Len(d.tasks[k].nodes) > 0
-Quiet(hs) == \A n \in hs : LET d == Decide27(n, hs, {}, {}) IN ~Replicates(d) /\ d.del = "none"
-NoTasks(hs) == \A n \in hs : ~Replicates(Decide27(n, hs, {}, {}))
- \* a check "replicates" when it hands the replicator a task with at least one candidate node. (With overlapping
-\* rules the code as found keeps calling the replicator with an EMPTY candidate list: a holder remembered from
-\* an earlier rule does not lower the shortage of a later rule - a phantom shortage that copies nothing.)
-Replicates(d) == \E k \in 1..Len(d.tasks) : Len(d.tasks[k].nodes) > 0
-Quiet(hs) == \A n \in hs : LET d == Decide27(n, hs, {}, {}) IN ~Replicates(d) /\ d.del = "none"
-NoTasks(hs) == \A n \in hs : ~Replicates(Decide27(n, hs, {}, {}))
-{\* a check "replicates" when it hands the replicator a task with at least one candidate node. (With overlapping
-\* rules the code as found keeps calling the replicator with an EMPTY candidate list: a holder remembered from
-\* an earlier rule does not lower the shortage of a later rule - a phantom shortage that copies nothing.)
-Replicates(d) == \E k \in 1..Len(d.tasks) : Len(d.tasks[k].nodes) > 0
-Quiet(hs) == \A n \in hs : LET d == Decide27(n, hs, {}, {}) IN ~Replicates(d) /\ d.del = "none"
-NoTasks(hs) == \A n \in hs : ~Replicates(Decide27(n, hs, {}, {}))
-}\* a check "replicates" when it hands the replicator a task with at least one candidate node. (With overlapping
-\* rules the code as found keeps calling the replicator with an EMPTY candidate list: a holder remembered from
-\* an earlier rule does not lower the shortage of a later rule - a phantom shortage that copies nothing.)
-Replicates(d) == \E k \in 1..Len(d.tasks) : Len(d.tasks[k].nodes) > 0
-Quiet(hs) == \A n \in hs : LET d == Decide27(n, hs, {}, {}) IN ~Replicates(d) /\ d.del = "none"
-NoTasks(hs) == \A n \in hs : ~Replicates(Decide27(n, hs, {}, {}))
-)\* a check "replicates" when it hands the replicator a task with at least one candidate node. (With overlapping
-\* rules the code as found keeps calling the replicator with an EMPTY candidate list: a holder remembered from
-\* an earlier rule does not lower the shortage of a later rule - a phantom shortage that copies nothing.)
-Replicates(d) == \E k \in 1..Len(d.tasks) : Len(d.tasks[k].nodes) > 0
-Quiet(hs) == \A n \in hs : LET d == Decide27(n, hs, {}, {}) IN ~Replicates(d) /\ d.del = "none"
-NoTasks(hs) == \A n \in hs : ~Replicates(Decide27(n, hs, {}, {}))
- \* a check "replicates" when it hands the replicator a task with at least one candidate node. (With overlapping
-\* rules the code as found keeps calling the replicator with an EMPTY candidate list: a holder remembered from
-\* an earlier rule does not lower the shortage of a later rule - a phantom shortage that copies nothing.)
-Replicates(d) == \E k \in 1..Len(d.tasks) : Len(d.tasks[k].nodes) > 0
-Quiet(hs) == \A n \in hs : LET d == Decide27(n, hs, {}, {}) IN ~Replicates(d) /\ d.del = "none"
-NoTasks(hs) == \A n \in hs : ~Replicates(Decide27(n, hs, {}, {}))
-/\* a check "replicates" when it hands the replicator a task with at least one candidate node. (With overlapping
-\* rules the code as found keeps calling the replicator with an EMPTY candidate list: a holder remembered from
-\* an earlier rule does not lower the shortage of a later rule - a phantom shortage that copies nothing.)
-Replicates(d) == \E k \in 1..Len(d.tasks) : Len(d.tasks[k].nodes) > 0
-Quiet(hs) == \A n \in hs : LET d == Decide27(n, hs, {}, {}) IN ~Replicates(d) /\ d.del = "none"
-NoTasks(hs) == \A n \in hs : ~Replicates(Decide27(n, hs, {}, {}))
-\\* a check "replicates" when it hands the replicator a task with at least one candidate node. (With overlapping
-\* rules the code as found keeps calling the replicator with an EMPTY candidate list: a holder remembered from
-\* an earlier rule does not lower the shortage of a later rule - a phantom shortage that copies nothing.)
-Replicates(d) == \E k \in 1..Len(d.tasks) : Len(d.tasks[k].nodes) > 0
-Quiet(hs) == \A n \in hs : LET d == Decide27(n, hs, {}, {}) IN ~Replicates(d) /\ d.del = "none"
-NoTasks(hs) == \A n \in hs : ~Replicates(Decide27(n, hs, {}, {}))
- \* a check "replicates" when it hands the replicator a task with at least one candidate node. (With overlapping
-\* rules the code as found keeps calling the replicator with an EMPTY candidate list: a holder remembered from
-\* an earlier rule does not lower the shortage of a later rule - a phantom shortage that copies nothing.)
-Replicates(d) == \E k \in 1..Len(d.tasks) : Len(d.tasks[k].nodes) > 0
-Quiet(hs) == \A n \in hs : LET d == Decide27(n, hs, {}, {}) IN ~Replicates(d) /\ d.del = "none"
-NoTasks(hs) == \A n \in hs : ~Replicates(Decide27(n, hs, {}, {}))
-U\* a check "replicates" when it hands the replicator a task with at least one candidate node. (With overlapping
-\* rules the code as found keeps calling the replicator with an EMPTY candidate list: a holder remembered from
-\* an earlier rule does not lower the shortage of a later rule - a phantom shortage that copies nothing.)
-Replicates(d) == \E k \in 1..Len(d.tasks) : Len(d.tasks[k].nodes) > 0
-Quiet(hs) == \A n \in hs : LET d == Decide27(n, hs, {}, {}) IN ~Replicates(d) /\ d.del = "none"
-NoTasks(hs) == \A n \in hs : ~Replicates(Decide27(n, hs, {}, {}))
-N\* a check "replicates" when it hands the replicator a task with at least one candidate node. (With overlapping
-\* rules the code as found keeps calling the replicator with an EMPTY candidate list: a holder remembered from
-\* an earlier rule does not lower the shortage of a later rule - a phantom shortage that copies nothing.)
-Replicates(d) == \E k \in 1..Len(d.tasks) : Len(d.tasks[k].nodes) > 0
-Quiet(hs) == \A n \in hs : LET d == Decide27(n, hs, {}, {}) IN ~Replicates(d) /\ d.del = "none"
-NoTasks(hs) == \A n \in hs : ~Replicates(Decide27(n, hs, {}, {}))
-C\* a check "replicates" when it hands the replicator a task with at least one candidate node. (With overlapping
-\* rules the code as found keeps calling the replicator with an EMPTY candidate list: a holder remembered from
-\* an earlier rule does not lower the shortage of a later rule - a phantom shortage that copies nothing.)
-Replicates(d) == \E k \in 1..Len(d.tasks) : Len(d.tasks[k].nodes) > 0
-Quiet(hs) == \A n \in hs : LET d == Decide27(n, hs, {}, {}) IN ~Replicates(d) /\ d.del = "none"
-NoTasks(hs) == \A n \in hs : ~Replicates(Decide27(n, hs, {}, {}))
-H\* a check "replicates" when it hands the replicator a task with at least one candidate node. (With overlapping
-\* rules the code as found keeps calling the replicator with an EMPTY candidate list: a holder remembered from
-\* an earlier rule does not lower the shortage of a later rule - a phantom shortage that copies nothing.)
-Replicates(d) == \E k \in 1..Len(d.tasks) : Len(d.tasks[k].nodes) > 0
-Quiet(hs) == \A n \in hs : LET d == Decide27(n, hs, {}, {}) IN ~Replicates(d) /\ d.del = "none"
-NoTasks(hs) == \A n \in hs : ~Replicates(Decide27(n, hs, {}, {}))
-A\* a check "replicates" when it hands the replicator a task with at least one candidate node. (With overlapping
-\* rules the code as found keeps calling the replicator with an EMPTY candidate list: a holder remembered from
-\* an earlier rule does not lower the shortage of a later rule - a phantom shortage that copies nothing.)
-Replicates(d) == \E k \in 1..Len(d.tasks) : Len(d.tasks[k].nodes) > 0
-Quiet(hs) == \A n \in hs : LET d == Decide27(n, hs, {}, {}) IN ~Replicates(d) /\ d.del = "none"
-NoTasks(hs) == \A n \in hs : ~Replicates(Decide27(n, hs, {}, {}))
-N\* a check "replicates" when it hands the replicator a task with at least one candidate node. (With overlapping
-\* rules the code as found keeps calling the replicator with an EMPTY candidate list: a holder remembered from
-\* an earlier rule does not lower the shortage of a later rule - a phantom shortage that copies nothing.)
-Replicates(d) == \E k \in 1..Len(d.tasks) : Len(d.tasks[k].nodes) > 0
-Quiet(hs) == \A n \in hs : LET d == Decide27(n, hs, {}, {}) IN ~Replicates(d) /\ d.del = "none"
-NoTasks(hs) == \A n \in hs : ~Replicates(Decide27(n, hs, {}, {}))
-G\* a check "replicates" when it hands the replicator a task with at least one candidate node. (With overlapping
-\* rules the code as found keeps calling the replicator with an EMPTY candidate list: a holder remembered from
-\* an earlier rule does not lower the shortage of a later rule - a phantom shortage that copies nothing.)
-Replicates(d) == \E k \in 1..Len(d.tasks) : Len(d.tasks[k].nodes) > 0
-Quiet(hs) == \A n \in hs : LET d == Decide27(n, hs, {}, {}) IN ~Replicates(d) /\ d.del = "none"
-NoTasks(hs) == \A n \in hs : ~Replicates(Decide27(n, hs, {}, {}))
-E\* a check "replicates" when it hands the replicator a task with at least one candidate node. (With overlapping
-\* rules the code as found keeps calling the replicator with an EMPTY candidate list: a holder remembered from
-\* an earlier rule does not lower the shortage of a later rule - a phantom shortage that copies nothing.)
-Replicates(d) == \E k \in 1..Len(d.tasks) : Len(d.tasks[k].nodes) > 0
-Quiet(hs) == \A n \in hs : LET d == Decide27(n, hs, {}, {}) IN ~Replicates(d) /\ d.del = "none"
-NoTasks(hs) == \A n \in hs : ~Replicates(Decide27(n, hs, {}, {}))
-D\* a check "replicates" when it hands the replicator a task with at least one candidate node. (With overlapping
-\* rules the code as found keeps calling the replicator with an EMPTY candidate list: a holder remembered from
-\* an earlier rule does not lower the shortage of a later rule - a phantom shortage that copies nothing.)
-Replicates(d) == \E k \in 1..Len(d.tasks) : Len(d.tasks[k].nodes) > 0
-Quiet(hs) == \A n \in hs : LET d == Decide27(n, hs, {}, {}) IN ~Replicates(d) /\ d.del = "none"
-NoTasks(hs) == \A n \in hs : ~Replicates(Decide27(n, hs, {}, {}))
- \* a check "replicates" when it hands the replicator a task with at least one candidate node. (With overlapping
-\* rules the code as found keeps calling the replicator with an EMPTY candidate list: a holder remembered from
-\* an earlier rule does not lower the shortage of a later rule - a phantom shortage that copies nothing.)
-Replicates(d) == \E k \in 1..Len(d.tasks) : Len(d.tasks[k].nodes) > 0
-Quiet(hs) == \A n \in hs : LET d == Decide27(n, hs, {}, {}) IN ~Replicates(d) /\ d.del = "none"
-NoTasks(hs) == \A n \in hs : ~Replicates(Decide27(n, hs, {}, {}))
-<\* a check "replicates" when it hands the replicator a task with at least one candidate node. (With overlapping
-\* rules the code as found keeps calling the replicator with an EMPTY candidate list: a holder remembered from
-\* an earlier rule does not lower the shortage of a later rule - a phantom shortage that copies nothing.)
-Replicates(d) == \E k \in 1..Len(d.tasks) : Len(d.tasks[k].nodes) > 0
-Quiet(hs) == \A n \in hs : LET d == Decide27(n, hs, {}, {}) IN ~Replicates(d) /\ d.del = "none"
-NoTasks(hs) == \A n \in hs : ~Replicates(Decide27(n, hs, {}, {}))
-<\* a check "replicates" when it hands the replicator a task with at least one candidate node. (With overlapping
-\* rules the code as found keeps calling the replicator with an EMPTY candidate list: a holder remembered from
-\* an earlier rule does not lower the shortage of a later rule - a phantom shortage that copies nothing.)
-Replicates(d) == \E k \in 1..Len(d.tasks) : Len(d.tasks[k].nodes) > 0
-Quiet(hs) == \A n \in hs : LET d == Decide27(n, hs, {}, {}) IN ~Replicates(d) /\ d.del = "none"
-NoTasks(hs) == \A n \in hs : ~Replicates(Decide27(n, hs, {}, {}))
-r\* a check "replicates" when it hands the replicator a task with at least one candidate node. (With overlapping
-\* rules the code as found keeps calling the replicator with an EMPTY candidate list: a holder remembered from
-\* an earlier rule does not lower the shortage of a later rule - a phantom shortage that copies nothing.)
-Replicates(d) == \E k \in 1..Len(d.tasks) : Len(d.tasks[k].nodes) > 0
-Quiet(hs) == \A n \in hs : LET d == Decide27(n, hs, {}, {}) IN ~Replicates(d) /\ d.del = "none"
-NoTasks(hs) == \A n \in hs : ~Replicates(Decide27(n, hs, {}, {}))
-a\* a check "replicates" when it hands the replicator a task with at least one candidate node. (With overlapping
-\* rules the code as found keeps calling the replicator with an EMPTY candidate list: a holder remembered from
-\* an earlier rule does not lower the shortage of a later rule - a phantom shortage that copies nothing.)
-Replicates(d) == \E k \in 1..Len(d.tasks) : Len(d.tasks[k].nodes) > 0
-Quiet(hs) == \A n \in hs : LET d == Decide27(n, hs, {}, {}) IN ~Replicates(d) /\ d.del = "none"
-NoTasks(hs) == \A n \in hs : ~Replicates(Decide27(n, hs, {}, {}))
-n\* a check "replicates" when it hands the replicator a task with at least one candidate node. (With overlapping
-\* rules the code as found keeps calling the replicator with an EMPTY candidate list: a holder remembered from
-\* an earlier rule does not lower the shortage of a later rule - a phantom shortage that copies nothing.)
-Replicates(d) == \E k \in 1..Len(d.tasks) : Len(d.tasks[k].nodes) > 0
-Quiet(hs) == \A n \in hs : LET d == Decide27(n, hs, {}, {}) IN ~Replicates(d) /\ d.del = "none"
-NoTasks(hs) == \A n \in hs : ~Replicates(Decide27(n, hs, {}, {}))
-,\* a check "replicates" when it hands the replicator a task with at least one candidate node. (With overlapping
-\* rules the code as found keeps calling the replicator with an EMPTY candidate list: a holder remembered from
-\* an earlier rule does not lower the shortage of a later rule - a phantom shortage that copies nothing.)
-Replicates(d) == \E k \in 1..Len(d.tasks) : Len(d.tasks[k].nodes) > 0
-Quiet(hs) == \A n \in hs : LET d == Decide27(n, hs, {}, {}) IN ~Replicates(d) /\ d.del = "none"
-NoTasks(hs) == \A n \in hs : ~Replicates(Decide27(n, hs, {}, {}))
- \* a check "replicates" when it hands the replicator a task with at least one candidate node. (With overlapping
-\* rules the code as found keeps calling the replicator with an EMPTY candidate list: a holder remembered from
-\* an earlier rule does not lower the shortage of a later rule - a phantom shortage that copies nothing.)
-Replicates(d) == \E k \in 1..Len(d.tasks) : Len(d.tasks[k].nodes) > 0
-Quiet(hs) == \A n \in hs : LET d == Decide27(n, hs, {}, {}) IN ~Replicates(d) /\ d.del = "none"
-NoTasks(hs) == \A n \in hs : ~Replicates(Decide27(n, hs, {}, {}))
-r\* a check "replicates" when it hands the replicator a task with at least one candidate node. (With overlapping
-\* rules the code as found keeps calling the replicator with an EMPTY candidate list: a holder remembered from
-\* an earlier rule does not lower the shortage of a later rule - a phantom shortage that copies nothing.)
-Replicates(d) == \E k \in 1..Len(d.tasks) : Len(d.tasks[k].nodes) > 0
-Quiet(hs) == \A n \in hs : LET d == Decide27(n, hs, {}, {}) IN ~Replicates(d) /\ d.del = "none"
-NoTasks(hs) == \A n \in hs : ~Replicates(Decide27(n, hs, {}, {}))
-o\* a check "replicates" when it hands the replicator a task with at least one candidate node. (With overlapping
-\* rules the code as found keeps calling the replicator with an EMPTY candidate list: a holder remembered from
-\* an earlier rule does not lower the shortage of a later rule - a phantom shortage that copies nothing.)
-Replicates(d) == \E k \in 1..Len(d.tasks) : Len(d.tasks[k].nodes) > 0
-Quiet(hs) == \A n \in hs : LET d == Decide27(n, hs, {}, {}) IN ~Replicates(d) /\ d.del = "none"
-NoTasks(hs) == \A n \in hs : ~Replicates(Decide27(n, hs, {}, {}))
-u\* a check "replicates" when it hands the replicator a task with at least one candidate node. (With overlapping
-\* rules the code as found keeps calling the replicator with an EMPTY candidate list: a holder remembered from
-\* an earlier rule does not lower the shortage of a later rule - a phantom shortage that copies nothing.)
-Replicates(d) == \E k \in 1..Len(d.tasks) : Len(d.tasks[k].nodes) > 0
-Quiet(hs) == \A n \in hs : LET d == Decide27(n, hs, {}, {}) IN ~Replicates(d) /\ d.del = "none"
-NoTasks(hs) == \A n \in hs : ~Replicates(Decide27(n, hs, {}, {}))
-n\* a check "replicates" when it hands the replicator a task with at least one candidate node. (With overlapping
-\* rules the code as found keeps calling the replicator with an EMPTY candidate list: a holder remembered from
-\* an earlier rule does not lower the shortage of a later rule - a phantom shortage that copies nothing.)
-Replicates(d) == \E k \in 1..Len(d.tasks) : Len(d.tasks[k].nodes) > 0
-Quiet(hs) == \A n \in hs : LET d == Decide27(n, hs, {}, {}) IN ~Replicates(d) /\ d.del = "none"
-NoTasks(hs) == \A n \in hs : ~Replicates(Decide27(n, hs, {}, {}))
-d\* a check "replicates" when it hands the replicator a task with at least one candidate node. (With overlapping
-\* rules the code as found keeps calling the replicator with an EMPTY candidate list: a holder remembered from
-\* an earlier rule does not lower the shortage of a later rule - a phantom shortage that copies nothing.)
-Replicates(d) == \E k \in 1..Len(d.tasks) : Len(d.tasks[k].nodes) > 0
-Quiet(hs) == \A n \in hs : LET d == Decide27(n, hs, {}, {}) IN ~Replicates(d) /\ d.del = "none"
-NoTasks(hs) == \A n \in hs : ~Replicates(Decide27(n, hs, {}, {}))
->\* a check "replicates" when it hands the replicator a task with at least one candidate node. (With overlapping
-\* rules the code as found keeps calling the replicator with an EMPTY candidate list: a holder remembered from
-\* an earlier rule does not lower the shortage of a later rule - a phantom shortage that copies nothing.)
-Replicates(d) == \E k \in 1..Len(d.tasks) : Len(d.tasks[k].nodes) > 0
-Quiet(hs) == \A n \in hs : LET d == Decide27(n, hs, {}, {}) IN ~Replicates(d) /\ d.del = "none"
-NoTasks(hs) == \A n \in hs : ~Replicates(Decide27(n, hs, {}, {}))
->\* a check "replicates" when it hands the replicator a task with at least one candidate node. (With overlapping
-\* rules the code as found keeps calling the replicator with an EMPTY candidate list: a holder remembered from
-\* an earlier rule does not lower the shortage of a later rule - a phantom shortage that copies nothing.)
-Replicates(d) == \E k \in 1..Len(d.tasks) : Len(d.tasks[k].nodes) > 0
-Quiet(hs) == \A n \in hs : LET d == Decide27(n, hs, {}, {}) IN ~Replicates(d) /\ d.del = "none"
-NoTasks(hs) == \A n \in hs : ~Replicates(Decide27(n, hs, {}, {}))
-
-\* a check "replicates" when it hands the replicator a task with at least one candidate node. (With overlapping
-\* rules the code as found keeps calling the replicator with an EMPTY candidate list: a holder remembered from
-\* an earlier rule does not lower the shortage of a later rule - a phantom shortage that copies nothing.)
-Replicates(d) == \E k \in 1..Len(d.tasks) : Len(d.tasks[k].nodes) > 0
-Quiet(hs) == \A n \in hs : LET d == Decide27(n, hs, {}, {}) IN ~Replicates(d) /\ d.del = "none"
-NoTasks(hs) == \A n \in hs : ~Replicates(Decide27(n, hs, {}, {}))
-\\* a check "replicates" when it hands the replicator a task with at least one candidate node. (With overlapping
-\* rules the code as found keeps calling the replicator with an EMPTY candidate list: a holder remembered from
-\* an earlier rule does not lower the shortage of a later rule - a phantom shortage that copies nothing.)
-Replicates(d) == \E k \in 1..Len(d.tasks) : Len(d.tasks[k].nodes) > 0
-Quiet(hs) == \A n \in hs : LET d == Decide27(n, hs, {}, {}) IN ~Replicates(d) /\ d.del = "none"
-NoTasks(hs) == \A n \in hs : ~Replicates(Decide27(n, hs, {}, {}))
-*\* a check "replicates" when it hands the replicator a task with at least one candidate node. (With overlapping
-\* rules the code as found keeps calling the replicator with an EMPTY candidate list: a holder remembered from
-\* an earlier rule does not lower the shortage of a later rule - a phantom shortage that copies nothing.)
-Replicates(d) == \E k \in 1..Len(d.tasks) : Len(d.tasks[k].nodes) > 0
-Quiet(hs) == \A n \in hs : LET d == Decide27(n, hs, {}, {}) IN ~Replicates(d) /\ d.del = "none"
-NoTasks(hs) == \A n \in hs : ~Replicates(Decide27(n, hs, {}, {}))
- \* a check "replicates" when it hands the replicator a task with at least one candidate node. (With overlapping
-\* rules the code as found keeps calling the replicator with an EMPTY candidate list: a holder remembered from
-\* an earlier rule does not lower the shortage of a later rule - a phantom shortage that copies nothing.)
-Replicates(d) == \E k \in 1..Len(d.tasks) : Len(d.tasks[k].nodes) > 0
-Quiet(hs) == \A n \in hs : LET d == Decide27(n, hs, {}, {}) IN ~Replicates(d) /\ d.del = "none"
-NoTasks(hs) == \A n \in hs : ~Replicates(Decide27(n, hs, {}, {}))
-.\* a check "replicates" when it hands the replicator a task with at least one candidate node. (With overlapping
-\* rules the code as found keeps calling the replicator with an EMPTY candidate list: a holder remembered from
-\* an earlier rule does not lower the shortage of a later rule - a phantom shortage that copies nothing.)
-Replicates(d) == \E k \in 1..Len(d.tasks) : Len(d.tasks[k].nodes) > 0
-Quiet(hs) == \A n \in hs : LET d == Decide27(n, hs, {}, {}) IN ~Replicates(d) /\ d.del = "none"
-NoTasks(hs) == \A n \in hs : ~Replicates(Decide27(n, hs, {}, {}))
-.\* a check "replicates" when it hands the replicator a task with at least one candidate node. (With overlapping
-\* rules the code as found keeps calling the replicator with an EMPTY candidate list: a holder remembered from
-\* an earlier rule does not lower the shortage of a later rule - a phantom shortage that copies nothing.)
-Replicates(d) == \E k \in 1..Len(d.tasks) : Len(d.tasks[k].nodes) > 0
-Quiet(hs) == \A n \in hs : LET d == Decide27(n, hs, {}, {}) IN ~Replicates(d) /\ d.del = "none"
-NoTasks(hs) == \A n \in hs : ~Replicates(Decide27(n, hs, {}, {}))
-.\* a check "replicates" when it hands the replicator a task with at least one candidate node. (With overlapping
-\* rules the code as found keeps calling the replicator with an EMPTY candidate list: a holder remembered from
-\* an earlier rule does not lower the shortage of a later rule - a phantom shortage that copies nothing.)
-Replicates(d) == \E k \in 1..Len(d.tasks) : Len(d.tasks[k].nodes) > 0
-Quiet(hs) == \A n \in hs : LET d == Decide27(n, hs, {}, {}) IN ~Replicates(d) /\ d.del = "none"
-NoTasks(hs) == \A n \in hs : ~Replicates(Decide27(n, hs, {}, {}))
- \* a check "replicates" when it hands the replicator a task with at least one candidate node. (With overlapping
-\* rules the code as found keeps calling the replicator with an EMPTY candidate list: a holder remembered from
-\* an earlier rule does not lower the shortage of a later rule - a phantom shortage that copies nothing.)
-Replicates(d) == \E k \in 1..Len(d.tasks) : Len(d.tasks[k].nodes) > 0
-Quiet(hs) == \A n \in hs : LET d == Decide27(n, hs, {}, {}) IN ~Replicates(d) /\ d.del = "none"
-NoTasks(hs) == \A n \in hs : ~Replicates(Decide27(n, hs, {}, {}))
-a\* a check "replicates" when it hands the replicator a task with at least one candidate node. (With overlapping
-\* rules the code as found keeps calling the replicator with an EMPTY candidate list: a holder remembered from
-\* an earlier rule does not lower the shortage of a later rule - a phantom shortage that copies nothing.)
-Replicates(d) == \E k \in 1..Len(d.tasks) : Len(d.tasks[k].nodes) > 0
-Quiet(hs) == \A n \in hs : LET d == Decide27(n, hs, {}, {}) IN ~Replicates(d) /\ d.del = "none"
-NoTasks(hs) == \A n \in hs : ~Replicates(Decide27(n, hs, {}, {}))
-n\* a check "replicates" when it hands the replicator a task with at least one candidate node. (With overlapping
-\* rules the code as found keeps calling the replicator with an EMPTY candidate list: a holder remembered from
-\* an earlier rule does not lower the shortage of a later rule - a phantom shortage that copies nothing.)
-Replicates(d) == \E k \in 1..Len(d.tasks) : Len(d.tasks[k].nodes) > 0
-Quiet(hs) == \A n \in hs : LET d == Decide27(n, hs, {}, {}) IN ~Replicates(d) /\ d.del = "none"
-NoTasks(hs) == \A n \in hs : ~Replicates(Decide27(n, hs, {}, {}))
-d\* a check "replicates" when it hands the replicator a task with at least one candidate node. (With overlapping
-\* rules the code as found keeps calling the replicator with an EMPTY candidate list: a holder remembered from
-\* an earlier rule does not lower the shortage of a later rule - a phantom shortage that copies nothing.)
-Replicates(d) == \E k \in 1..Len(d.tasks) : Len(d.tasks[k].nodes) > 0
-Quiet(hs) == \A n \in hs : LET d == Decide27(n, hs, {}, {}) IN ~Replicates(d) /\ d.del = "none"
-NoTasks(hs) == \A n \in hs : ~Replicates(Decide27(n, hs, {}, {}))
- \* a check "replicates" when it hands the replicator a task with at least one candidate node. (With overlapping
-\* rules the code as found keeps calling the replicator with an EMPTY candidate list: a holder remembered from
-\* an earlier rule does not lower the shortage of a later rule - a phantom shortage that copies nothing.)
-Replicates(d) == \E k \in 1..Len(d.tasks) : Len(d.tasks[k].nodes) > 0
-Quiet(hs) == \A n \in hs : LET d == Decide27(n, hs, {}, {}) IN ~Replicates(d) /\ d.del = "none"
-NoTasks(hs) == \A n \in hs : ~Replicates(Decide27(n, hs, {}, {}))
-t\* a check "replicates" when it hands the replicator a task with at least one candidate node. (With overlapping
-\* rules the code as found keeps calling the replicator with an EMPTY candidate list: a holder remembered from
-\* an earlier rule does not lower the shortage of a later rule - a phantom shortage that copies nothing.)
-Replicates(d) == \E k \in 1..Len(d.tasks) : Len(d.tasks[k].nodes) > 0
-Quiet(hs) == \A n \in hs : LET d == Decide27(n, hs, {}, {}) IN ~Replicates(d) /\ d.del = "none"
-NoTasks(hs) == \A n \in hs : ~Replicates(Decide27(n, hs, {}, {}))
-h\* a check "replicates" when it hands the replicator a task with at least one candidate node. (With overlapping
-\* rules the code as found keeps calling the replicator with an EMPTY candidate list: a holder remembered from
-\* an earlier rule does not lower the shortage of a later rule - a phantom shortage that copies nothing.)
-Replicates(d) == \E k \in 1..Len(d.tasks) : Len(d.tasks[k].nodes) > 0
-Quiet(hs) == \A n \in hs : LET d == Decide27(n, hs, {}, {}) IN ~Replicates(d) /\ d.del = "none"
-NoTasks(hs) == \A n \in hs : ~Replicates(Decide27(n, hs, {}, {}))
-e\* a check "replicates" when it hands the replicator a task with at least one candidate node. (With overlapping
-\* rules the code as found keeps calling the replicator with an EMPTY candidate list: a holder remembered from
-\* an earlier rule does not lower the shortage of a later rule - a phantom shortage that copies nothing.)
-Replicates(d) == \E k \in 1..Len(d.tasks) : Len(d.tasks[k].nodes) > 0
-Quiet(hs) == \A n \in hs : LET d == Decide27(n, hs, {}, {}) IN ~Replicates(d) /\ d.del = "none"
-NoTasks(hs) == \A n \in hs : ~Replicates(Decide27(n, hs, {}, {}))
- \* a check "replicates" when it hands the replicator a task with at least one candidate node. (With overlapping
-\* rules the code as found keeps calling the replicator with an EMPTY candidate list: a holder remembered from
-\* an earlier rule does not lower the shortage of a later rule - a phantom shortage that copies nothing.)
-Replicates(d) == \E k \in 1..Len(d.tasks) : Len(d.tasks[k].nodes) > 0
-Quiet(hs) == \A n \in hs : LET d == Decide27(n, hs, {}, {}) IN ~Replicates(d) /\ d.del = "none"
-NoTasks(hs) == \A n \in hs : ~Replicates(Decide27(n, hs, {}, {}))
-r\* a check "replicates" when it hands the replicator a task with at least one candidate node. (With overlapping
-\* rules the code as found keeps calling the replicator with an EMPTY candidate list: a holder remembered from
-\* an earlier rule does not lower the shortage of a later rule - a phantom shortage that copies nothing.)
-Replicates(d) == \E k \in 1..Len(d.tasks) : Len(d.tasks[k].nodes) > 0
-Quiet(hs) == \A n \in hs : LET d == Decide27(n, hs, {}, {}) IN ~Replicates(d) /\ d.del = "none"
-NoTasks(hs) == \A n \in hs : ~Replicates(Decide27(n, hs, {}, {}))
-o\* a check "replicates" when it hands the replicator a task with at least one candidate node. (With overlapping
-\* rules the code as found keeps calling the replicator with an EMPTY candidate list: a holder remembered from
-\* an earlier rule does not lower the shortage of a later rule - a phantom shortage that copies nothing.)
-Replicates(d) == \E k \in 1..Len(d.tasks) : Len(d.tasks[k].nodes) > 0
-Quiet(hs) == \A n \in hs : LET d == Decide27(n, hs, {}, {}) IN ~Replicates(d) /\ d.del = "none"
-NoTasks(hs) == \A n \in hs : ~Replicates(Decide27(n, hs, {}, {}))
-u\* a check "replicates" when it hands the replicator a task with at least one candidate node. (With overlapping
-\* rules the code as found keeps calling the replicator with an EMPTY candidate list: a holder remembered from
-\* an earlier rule does not lower the shortage of a later rule - a phantom shortage that copies nothing.)
-Replicates(d) == \E k \in 1..Len(d.tasks) : Len(d.tasks[k].nodes) > 0
-Quiet(hs) == \A n \in hs : LET d == Decide27(n, hs, {}, {}) IN ~Replicates(d) /\ d.del = "none"
-NoTasks(hs) == \A n \in hs : ~Replicates(Decide27(n, hs, {}, {}))
-n\* a check "replicates" when it hands the replicator a task with at least one candidate node. (With overlapping
-\* rules the code as found keeps calling the replicator with an EMPTY candidate list: a holder remembered from
-\* an earlier rule does not lower the shortage of a later rule - a phantom shortage that copies nothing.)
-Replicates(d) == \E k \in 1..Len(d.tasks) : Len(d.tasks[k].nodes) > 0
-Quiet(hs) == \A n \in hs : LET d == Decide27(n, hs, {}, {}) IN ~Replicates(d) /\ d.del = "none"
-NoTasks(hs) == \A n \in hs : ~Replicates(Decide27(n, hs, {}, {}))
-d\* a check "replicates" when it hands the replicator a task with at least one candidate node. (With overlapping
-\* rules the code as found keeps calling the replicator with an EMPTY candidate list: a holder remembered from
-\* an earlier rule does not lower the shortage of a later rule - a phantom shortage that copies nothing.)
-Replicates(d) == \E k \in 1..Len(d.tasks) : Len(d.tasks[k].nodes) > 0
-Quiet(hs) == \A n \in hs : LET d == Decide27(n, hs, {}, {}) IN ~Replicates(d) /\ d.del = "none"
-NoTasks(hs) == \A n \in hs : ~Replicates(Decide27(n, hs, {}, {}))
- \* a check "replicates" when it hands the replicator a task with at least one candidate node. (With overlapping
-\* rules the code as found keeps calling the replicator with an EMPTY candidate list: a holder remembered from
-\* an earlier rule does not lower the shortage of a later rule - a phantom shortage that copies nothing.)
-Replicates(d) == \E k \in 1..Len(d.tasks) : Len(d.tasks[k].nodes) > 0
-Quiet(hs) == \A n \in hs : LET d == Decide27(n, hs, {}, {}) IN ~Replicates(d) /\ d.del = "none"
-NoTasks(hs) == \A n \in hs : ~Replicates(Decide27(n, hs, {}, {}))
-d\* a check "replicates" when it hands the replicator a task with at least one candidate node. (With overlapping
-\* rules the code as found keeps calling the replicator with an EMPTY candidate list: a holder remembered from
-\* an earlier rule does not lower the shortage of a later rule - a phantom shortage that copies nothing.)
-Replicates(d) == \E k \in 1..Len(d.tasks) : Len(d.tasks[k].nodes) > 0
-Quiet(hs) == \A n \in hs : LET d == Decide27(n, hs, {}, {}) IN ~Replicates(d) /\ d.del = "none"
-NoTasks(hs) == \A n \in hs : ~Replicates(Decide27(n, hs, {}, {}))
-i\* a check "replicates" when it hands the replicator a task with at least one candidate node. (With overlapping
-\* rules the code as found keeps calling the replicator with an EMPTY candidate list: a holder remembered from
-\* an earlier rule does not lower the shortage of a later rule - a phantom shortage that copies nothing.)
-Replicates(d) == \E k \in 1..Len(d.tasks) : Len(d.tasks[k].nodes) > 0
-Quiet(hs) == \A n \in hs : LET d == Decide27(n, hs, {}, {}) IN ~Replicates(d) /\ d.del = "none"
-NoTasks(hs) == \A n \in hs : ~Replicates(Decide27(n, hs, {}, {}))
-s\* a check "replicates" when it hands the replicator a task with at least one candidate node. (With overlapping
-\* rules the code as found keeps calling the replicator with an EMPTY candidate list: a holder remembered from
-\* an earlier rule does not lower the shortage of a later rule - a phantom shortage that copies nothing.)
-Replicates(d) == \E k \in 1..Len(d.tasks) : Len(d.tasks[k].nodes) > 0
-Quiet(hs) == \A n \in hs : LET d == Decide27(n, hs, {}, {}) IN ~Replicates(d) /\ d.del = "none"
-NoTasks(hs) == \A n \in hs : ~Replicates(Decide27(n, hs, {}, {}))
-c\* a check "replicates" when it hands the replicator a task with at least one candidate node. (With overlapping
-\* rules the code as found keeps calling the replicator with an EMPTY candidate list: a holder remembered from
-\* an earlier rule does not lower the shortage of a later rule - a phantom shortage that copies nothing.)
-Replicates(d) == \E k \in 1..Len(d.tasks) : Len(d.tasks[k].nodes) > 0
-Quiet(hs) == \A n \in hs : LET d == Decide27(n, hs, {}, {}) IN ~Replicates(d) /\ d.del = "none"
-NoTasks(hs) == \A n \in hs : ~Replicates(Decide27(n, hs, {}, {}))
-i\* a check "replicates" when it hands the replicator a task with at least one candidate node. (With overlapping
-\* rules the code as found keeps calling the replicator with an EMPTY candidate list: a holder remembered from
-\* an earlier rule does not lower the shortage of a later rule - a phantom shortage that copies nothing.)
-Replicates(d) == \E k \in 1..Len(d.tasks) : Len(d.tasks[k].nodes) > 0
-Quiet(hs) == \A n \in hs : LET d == Decide27(n, hs, {}, {}) IN ~Replicates(d) /\ d.del = "none"
-NoTasks(hs) == \A n \in hs : ~Replicates(Decide27(n, hs, {}, {}))
-p\* a check "replicates" when it hands the replicator a task with at least one candidate node. (With overlapping
-\* rules the code as found keeps calling the replicator with an EMPTY candidate list: a holder remembered from
-\* an earlier rule does not lower the shortage of a later rule - a phantom shortage that copies nothing.)
-Replicates(d) == \E k \in 1..Len(d.tasks) : Len(d.tasks[k].nodes) > 0
-Quiet(hs) == \A n \in hs : LET d == Decide27(n, hs, {}, {}) IN ~Replicates(d) /\ d.del = "none"
-NoTasks(hs) == \A n \in hs : ~Replicates(Decide27(n, hs, {}, {}))
-l\* a check "replicates" when it hands the replicator a task with at least one candidate node. (With overlapping
-\* rules the code as found keeps calling the replicator with an EMPTY candidate list: a holder remembered from
-\* an earlier rule does not lower the shortage of a later rule - a phantom shortage that copies nothing.)
-Replicates(d) == \E k \in 1..Len(d.tasks) : Len(d.tasks[k].nodes) > 0
-Quiet(hs) == \A n \in hs : LET d == Decide27(n, hs, {}, {}) IN ~Replicates(d) /\ d.del = "none"
-NoTasks(hs) == \A n \in hs : ~Replicates(Decide27(n, hs, {}, {}))
-i\* a check "replicates" when it hands the replicator a task with at least one candidate node. (With overlapping
-\* rules the code as found keeps calling the replicator with an EMPTY candidate list: a holder remembered from
-\* an earlier rule does not lower the shortage of a later rule - a phantom shortage that copies nothing.)
-Replicates(d) == \E k \in 1..Len(d.tasks) : Len(d.tasks[k].nodes) > 0
-Quiet(hs) == \A n \in hs : LET d == Decide27(n, hs, {}, {}) IN ~Replicates(d) /\ d.del = "none"
-NoTasks(hs) == \A n \in hs : ~Replicates(Decide27(n, hs, {}, {}))
-n\* a check "replicates" when it hands the replicator a task with at least one candidate node. (With overlapping
-\* rules the code as found keeps calling the replicator with an EMPTY candidate list: a holder remembered from
-\* an earlier rule does not lower the shortage of a later rule - a phantom shortage that copies nothing.)
-Replicates(d) == \E k \in 1..Len(d.tasks) : Len(d.tasks[k].nodes) > 0
-Quiet(hs) == \A n \in hs : LET d == Decide27(n, hs, {}, {}) IN ~Replicates(d) /\ d.del = "none"
-NoTasks(hs) == \A n \in hs : ~Replicates(Decide27(n, hs, {}, {}))
-e\* a check "replicates" when it hands the replicator a task with at least one candidate node. (With overlapping
-\* rules the code as found keeps calling the replicator with an EMPTY candidate list: a holder remembered from
-\* an earlier rule does not lower the shortage of a later rule - a phantom shortage that copies nothing.)
-Replicates(d) == \E k \in 1..Len(d.tasks) : Len(d.tasks[k].nodes) > 0
-Quiet(hs) == \A n \in hs : LET d == Decide27(n, hs, {}, {}) IN ~Replicates(d) /\ d.del = "none"
-NoTasks(hs) == \A n \in hs : ~Replicates(Decide27(n, hs, {}, {}))
- \* a check "replicates" when it hands the replicator a task with at least one candidate node. (With overlapping
-\* rules the code as found keeps calling the replicator with an EMPTY candidate list: a holder remembered from
-\* an earlier rule does not lower the shortage of a later rule - a phantom shortage that copies nothing.)
-Replicates(d) == \E k \in 1..Len(d.tasks) : Len(d.tasks[k].nodes) > 0
-Quiet(hs) == \A n \in hs : LET d == Decide27(n, hs, {}, {}) IN ~Replicates(d) /\ d.del = "none"
-NoTasks(hs) == \A n \in hs : ~Replicates(Decide27(n, hs, {}, {}))
-o\* a check "replicates" when it hands the replicator a task with at least one candidate node. (With overlapping
-\* rules the code as found keeps calling the replicator with an EMPTY candidate list: a holder remembered from
-\* an earlier rule does not lower the shortage of a later rule - a phantom shortage that copies nothing.)
-Replicates(d) == \E k \in 1..Len(d.tasks) : Len(d.tasks[k].nodes) > 0
-Quiet(hs) == \A n \in hs : LET d == Decide27(n, hs, {}, {}) IN ~Replicates(d) /\ d.del = "none"
-NoTasks(hs) == \A n \in hs : ~Replicates(Decide27(n, hs, {}, {}))
-f\* a check "replicates" when it hands the replicator a task with at least one candidate node. (With overlapping
-\* rules the code as found keeps calling the replicator with an EMPTY candidate list: a holder remembered from
-\* an earlier rule does not lower the shortage of a later rule - a phantom shortage that copies nothing.)
-Replicates(d) == \E k \in 1..Len(d.tasks) : Len(d.tasks[k].nodes) > 0
-Quiet(hs) == \A n \in hs : LET d == Decide27(n, hs, {}, {}) IN ~Replicates(d) /\ d.del = "none"
-NoTasks(hs) == \A n \in hs : ~Replicates(Decide27(n, hs, {}, {}))
- \* a check "replicates" when it hands the replicator a task with at least one candidate node. (With overlapping
-\* rules the code as found keeps calling the replicator with an EMPTY candidate list: a holder remembered from
-\* an earlier rule does not lower the shortage of a later rule - a phantom shortage that copies nothing.)
-Replicates(d) == \E k \in 1..Len(d.tasks) : Len(d.tasks[k].nodes) > 0
-Quiet(hs) == \A n \in hs : LET d == Decide27(n, hs, {}, {}) IN ~Replicates(d) /\ d.del = "none"
-NoTasks(hs) == \A n \in hs : ~Replicates(Decide27(n, hs, {}, {}))
-t\* a check "replicates" when it hands the replicator a task with at least one candidate node. (With overlapping
-\* rules the code as found keeps calling the replicator with an EMPTY candidate list: a holder remembered from
-\* an earlier rule does not lower the shortage of a later rule - a phantom shortage that copies nothing.)
-Replicates(d) == \E k \in 1..Len(d.tasks) : Len(d.tasks[k].nodes) > 0
-Quiet(hs) == \A n \in hs : LET d == Decide27(n, hs, {}, {}) IN ~Replicates(d) /\ d.del = "none"
-NoTasks(hs) == \A n \in hs : ~Replicates(Decide27(n, hs, {}, {}))
-h\* a check "replicates" when it hands the replicator a task with at least one candidate node. (With overlapping
-\* rules the code as found keeps calling the replicator with an EMPTY candidate list: a holder remembered from
-\* an earlier rule does not lower the shortage of a later rule - a phantom shortage that copies nothing.)
-Replicates(d) == \E k \in 1..Len(d.tasks) : Len(d.tasks[k].nodes) > 0
-Quiet(hs) == \A n \in hs : LET d == Decide27(n, hs, {}, {}) IN ~Replicates(d) /\ d.del = "none"
-NoTasks(hs) == \A n \in hs : ~Replicates(Decide27(n, hs, {}, {}))
-e\* a check "replicates" when it hands the replicator a task with at least one candidate node. (With overlapping
-\* rules the code as found keeps calling the replicator with an EMPTY candidate list: a holder remembered from
-\* an earlier rule does not lower the shortage of a later rule - a phantom shortage that copies nothing.)
-Replicates(d) == \E k \in 1..Len(d.tasks) : Len(d.tasks[k].nodes) > 0
-Quiet(hs) == \A n \in hs : LET d == Decide27(n, hs, {}, {}) IN ~Replicates(d) /\ d.del = "none"
-NoTasks(hs) == \A n \in hs : ~Replicates(Decide27(n, hs, {}, {}))
- \* a check "replicates" when it hands the replicator a task with at least one candidate node. (With overlapping
-\* rules the code as found keeps calling the replicator with an EMPTY candidate list: a holder remembered from
-\* an earlier rule does not lower the shortage of a later rule - a phantom shortage that copies nothing.)
-Replicates(d) == \E k \in 1..Len(d.tasks) : Len(d.tasks[k].nodes) > 0
-Quiet(hs) == \A n \in hs : LET d == Decide27(n, hs, {}, {}) IN ~Replicates(d) /\ d.del = "none"
-NoTasks(hs) == \A n \in hs : ~Replicates(Decide27(n, hs, {}, {}))
-b\* a check "replicates" when it hands the replicator a task with at least one candidate node. (With overlapping
-\* rules the code as found keeps calling the replicator with an EMPTY candidate list: a holder remembered from
-\* an earlier rule does not lower the shortage of a later rule - a phantom shortage that copies nothing.)
-Replicates(d) == \E k \in 1..Len(d.tasks) : Len(d.tasks[k].nodes) > 0
-Quiet(hs) == \A n \in hs : LET d == Decide27(n, hs, {}, {}) IN ~Replicates(d) /\ d.del = "none"
-NoTasks(hs) == \A n \in hs : ~Replicates(Decide27(n, hs, {}, {}))
-o\* a check "replicates" when it hands the replicator a task with at least one candidate node. (With overlapping
-\* rules the code as found keeps calling the replicator with an EMPTY candidate list: a holder remembered from
-\* an earlier rule does not lower the shortage of a later rule - a phantom shortage that copies nothing.)
-Replicates(d) == \E k \in 1..Len(d.tasks) : Len(d.tasks[k].nodes) > 0
-Quiet(hs) == \A n \in hs : LET d == Decide27(n, hs, {}, {}) IN ~Replicates(d) /\ d.del = "none"
-NoTasks(hs) == \A n \in hs : ~Replicates(Decide27(n, hs, {}, {}))
-u\* a check "replicates" when it hands the replicator a task with at least one candidate node. (With overlapping
-\* rules the code as found keeps calling the replicator with an EMPTY candidate list: a holder remembered from
-\* an earlier rule does not lower the shortage of a later rule - a phantom shortage that copies nothing.)
-Replicates(d) == \E k \in 1..Len(d.tasks) : Len(d.tasks[k].nodes) > 0
-Quiet(hs) == \A n \in hs : LET d == Decide27(n, hs, {}, {}) IN ~Replicates(d) /\ d.del = "none"
-NoTasks(hs) == \A n \in hs : ~Replicates(Decide27(n, hs, {}, {}))
-n\* a check "replicates" when it hands the replicator a task with at least one candidate node. (With overlapping
-\* rules the code as found keeps calling the replicator with an EMPTY candidate list: a holder remembered from
-\* an earlier rule does not lower the shortage of a later rule - a phantom shortage that copies nothing.)
-Replicates(d) == \E k \in 1..Len(d.tasks) : Len(d.tasks[k].nodes) > 0
-Quiet(hs) == \A n \in hs : LET d == Decide27(n, hs, {}, {}) IN ~Replicates(d) /\ d.del = "none"
-NoTasks(hs) == \A n \in hs : ~Replicates(Decide27(n, hs, {}, {}))
-d\* a check "replicates" when it hands the replicator a task with at least one candidate node. (With overlapping
-\* rules the code as found keeps calling the replicator with an EMPTY candidate list: a holder remembered from
-\* an earlier rule does not lower the shortage of a later rule - a phantom shortage that copies nothing.)
-Replicates(d) == \E k \in 1..Len(d.tasks) : Len(d.tasks[k].nodes) > 0
-Quiet(hs) == \A n \in hs : LET d == Decide27(n, hs, {}, {}) IN ~Replicates(d) /\ d.del = "none"
-NoTasks(hs) == \A n \in hs : ~Replicates(Decide27(n, hs, {}, {}))
-e\* a check "replicates" when it hands the replicator a task with at least one candidate node. (With overlapping
-\* rules the code as found keeps calling the replicator with an EMPTY candidate list: a holder remembered from
-\* an earlier rule does not lower the shortage of a later rule - a phantom shortage that copies nothing.)
-Replicates(d) == \E k \in 1..Len(d.tasks) : Len(d.tasks[k].nodes) > 0
-Quiet(hs) == \A n \in hs : LET d == Decide27(n, hs, {}, {}) IN ~Replicates(d) /\ d.del = "none"
-NoTasks(hs) == \A n \in hs : ~Replicates(Decide27(n, hs, {}, {}))
-d\* a check "replicates" when it hands the replicator a task with at least one candidate node. (With overlapping
-\* rules the code as found keeps calling the replicator with an EMPTY candidate list: a holder remembered from
-\* an earlier rule does not lower the shortage of a later rule - a phantom shortage that copies nothing.)
-Replicates(d) == \E k \in 1..Len(d.tasks) : Len(d.tasks[k].nodes) > 0
-Quiet(hs) == \A n \in hs : LET d == Decide27(n, hs, {}, {}) IN ~Replicates(d) /\ d.del = "none"
-NoTasks(hs) == \A n \in hs : ~Replicates(Decide27(n, hs, {}, {}))
- \* a check "replicates" when it hands the replicator a task with at least one candidate node. (With overlapping
-\* rules the code as found keeps calling the replicator with an EMPTY candidate list: a holder remembered from
-\* an earlier rule does not lower the shortage of a later rule - a phantom shortage that copies nothing.)
-Replicates(d) == \E k \in 1..Len(d.tasks) : Len(d.tasks[k].nodes) > 0
-Quiet(hs) == \A n \in hs : LET d == Decide27(n, hs, {}, {}) IN ~Replicates(d) /\ d.del = "none"
-NoTasks(hs) == \A n \in hs : ~Replicates(Decide27(n, hs, {}, {}))
-f\* a check "replicates" when it hands the replicator a task with at least one candidate node. (With overlapping
-\* rules the code as found keeps calling the replicator with an EMPTY candidate list: a holder remembered from
-\* an earlier rule does not lower the shortage of a later rule - a phantom shortage that copies nothing.)
-Replicates(d) == \E k \in 1..Len(d.tasks) : Len(d.tasks[k].nodes) > 0
-Quiet(hs) == \A n \in hs : LET d == Decide27(n, hs, {}, {}) IN ~Replicates(d) /\ d.del = "none"
-NoTasks(hs) == \A n \in hs : ~Replicates(Decide27(n, hs, {}, {}))
-o\* a check "replicates" when it hands the replicator a task with at least one candidate node. (With overlapping
-\* rules the code as found keeps calling the replicator with an EMPTY candidate list: a holder remembered from
-\* an earlier rule does not lower the shortage of a later rule - a phantom shortage that copies nothing.)
-Replicates(d) == \E k \in 1..Len(d.tasks) : Len(d.tasks[k].nodes) > 0
-Quiet(hs) == \A n \in hs : LET d == Decide27(n, hs, {}, {}) IN ~Replicates(d) /\ d.del = "none"
-NoTasks(hs) == \A n \in hs : ~Replicates(Decide27(n, hs, {}, {}))
-r\* a check "replicates" when it hands the replicator a task with at least one candidate node. (With overlapping
-\* rules the code as found keeps calling the replicator with an EMPTY candidate list: a holder remembered from
-\* an earlier rule does not lower the shortage of a later rule - a phantom shortage that copies nothing.)
-Replicates(d) == \E k \in 1..Len(d.tasks) : Len(d.tasks[k].nodes) > 0
-Quiet(hs) == \A n \in hs : LET d == Decide27(n, hs, {}, {}) IN ~Replicates(d) /\ d.del = "none"
-NoTasks(hs) == \A n \in hs : ~Replicates(Decide27(n, hs, {}, {}))
-m\* a check "replicates" when it hands the replicator a task with at least one candidate node. (With overlapping
-\* rules the code as found keeps calling the replicator with an EMPTY candidate list: a holder remembered from
-\* an earlier rule does not lower the shortage of a later rule - a phantom shortage that copies nothing.)
-Replicates(d) == \E k \in 1..Len(d.tasks) : Len(d.tasks[k].nodes) > 0
-Quiet(hs) == \A n \in hs : LET d == Decide27(n, hs, {}, {}) IN ~Replicates(d) /\ d.del = "none"
-NoTasks(hs) == \A n \in hs : ~Replicates(Decide27(n, hs, {}, {}))
-:\* a check "replicates" when it hands the replicator a task with at least one candidate node. (With overlapping
-\* rules the code as found keeps calling the replicator with an EMPTY candidate list: a holder remembered from
-\* an earlier rule does not lower the shortage of a later rule - a phantom shortage that copies nothing.)
-Replicates(d) == \E k \in 1..Len(d.tasks) : Len(d.tasks[k].nodes) > 0
-Quiet(hs) == \A n \in hs : LET d == Decide27(n, hs, {}, {}) IN ~Replicates(d) /\ d.del = "none"
-NoTasks(hs) == \A n \in hs : ~Replicates(Decide27(n, hs, {}, {}))
- \* a check "replicates" when it hands the replicator a task with at least one candidate node. (With overlapping
-\* rules the code as found keeps calling the replicator with an EMPTY candidate list: a holder remembered from
-\* an earlier rule does not lower the shortage of a later rule - a phantom shortage that copies nothing.)
-Replicates(d) == \E k \in 1..Len(d.tasks) : Len(d.tasks[k].nodes) > 0
-Quiet(hs) == \A n \in hs : LET d == Decide27(n, hs, {}, {}) IN ~Replicates(d) /\ d.del = "none"
-NoTasks(hs) == \A n \in hs : ~Replicates(Decide27(n, hs, {}, {}))
-e\* a check "replicates" when it hands the replicator a task with at least one candidate node. (With overlapping
-\* rules the code as found keeps calling the replicator with an EMPTY candidate list: a holder remembered from
-\* an earlier rule does not lower the shortage of a later rule - a phantom shortage that copies nothing.)
-Replicates(d) == \E k \in 1..Len(d.tasks) : Len(d.tasks[k].nodes) > 0
-Quiet(hs) == \A n \in hs : LET d == Decide27(n, hs, {}, {}) IN ~Replicates(d) /\ d.del = "none"
-NoTasks(hs) == \A n \in hs : ~Replicates(Decide27(n, hs, {}, {}))
-v\* a check "replicates" when it hands the replicator a task with at least one candidate node. (With overlapping
-\* rules the code as found keeps calling the replicator with an EMPTY candidate list: a holder remembered from
-\* an earlier rule does not lower the shortage of a later rule - a phantom shortage that copies nothing.)
-Replicates(d) == \E k \in 1..Len(d.tasks) : Len(d.tasks[k].nodes) > 0
-Quiet(hs) == \A n \in hs : LET d == Decide27(n, hs, {}, {}) IN ~Replicates(d) /\ d.del = "none"
-NoTasks(hs) == \A n \in hs : ~Replicates(Decide27(n, hs, {}, {}))
-e\* a check "replicates" when it hands the replicator a task with at least one candidate node. (With overlapping
-\* rules the code as found keeps calling the replicator with an EMPTY candidate list: a holder remembered from
-\* an earlier rule does not lower the shortage of a later rule - a phantom shortage that copies nothing.)
-Replicates(d) == \E k \in 1..Len(d.tasks) : Len(d.tasks[k].nodes) > 0
-Quiet(hs) == \A n \in hs : LET d == Decide27(n, hs, {}, {}) IN ~Replicates(d) /\ d.del = "none"
-NoTasks(hs) == \A n \in hs : ~Replicates(Decide27(n, hs, {}, {}))
-r\* a check "replicates" when it hands the replicator a task with at least one candidate node. (With overlapping
-\* rules the code as found keeps calling the replicator with an EMPTY candidate list: a holder remembered from
-\* an earlier rule does not lower the shortage of a later rule - a phantom shortage that copies nothing.)
-Replicates(d) == \E k \in 1..Len(d.tasks) : Len(d.tasks[k].nodes) > 0
-Quiet(hs) == \A n \in hs : LET d == Decide27(n, hs, {}, {}) IN ~Replicates(d) /\ d.del = "none"
-NoTasks(hs) == \A n \in hs : ~Replicates(Decide27(n, hs, {}, {}))
-y\* a check "replicates" when it hands the replicator a task with at least one candidate node. (With overlapping
-\* rules the code as found keeps calling the replicator with an EMPTY candidate list: a holder remembered from
-\* an earlier rule does not lower the shortage of a later rule - a phantom shortage that copies nothing.)
-Replicates(d) == \E k \in 1..Len(d.tasks) : Len(d.tasks[k].nodes) > 0
-Quiet(hs) == \A n \in hs : LET d == Decide27(n, hs, {}, {}) IN ~Replicates(d) /\ d.del = "none"
-NoTasks(hs) == \A n \in hs : ~Replicates(Decide27(n, hs, {}, {}))
- \* a check "replicates" when it hands the replicator a task with at least one candidate node. (With overlapping
-\* rules the code as found keeps calling the replicator with an EMPTY candidate list: a holder remembered from
-\* an earlier rule does not lower the shortage of a later rule - a phantom shortage that copies nothing.)
-Replicates(d) == \E k \in 1..Len(d.tasks) : Len(d.tasks[k].nodes) > 0
-Quiet(hs) == \A n \in hs : LET d == Decide27(n, hs, {}, {}) IN ~Replicates(d) /\ d.del = "none"
-NoTasks(hs) == \A n \in hs : ~Replicates(Decide27(n, hs, {}, {}))
-c\* a check "replicates" when it hands the replicator a task with at least one candidate node. (With overlapping
-\* rules the code as found keeps calling the replicator with an EMPTY candidate list: a holder remembered from
-\* an earlier rule does not lower the shortage of a later rule - a phantom shortage that copies nothing.)
-Replicates(d) == \E k \in 1..Len(d.tasks) : Len(d.tasks[k].nodes) > 0
-Quiet(hs) == \A n \in hs : LET d == Decide27(n, hs, {}, {}) IN ~Replicates(d) /\ d.del = "none"
-NoTasks(hs) == \A n \in hs : ~Replicates(Decide27(n, hs, {}, {}))
-u\* a check "replicates" when it hands the replicator a task with at least one candidate node. (With overlapping
-\* rules the code as found keeps calling the replicator with an EMPTY candidate list: a holder remembered from
-\* an earlier rule does not lower the shortage of a later rule - a phantom shortage that copies nothing.)
-Replicates(d) == \E k \in 1..Len(d.tasks) : Len(d.tasks[k].nodes) > 0
-Quiet(hs) == \A n \in hs : LET d == Decide27(n, hs, {}, {}) IN ~Replicates(d) /\ d.del = "none"
-NoTasks(hs) == \A n \in hs : ~Replicates(Decide27(n, hs, {}, {}))
-r\* a check "replicates" when it hands the replicator a task with at least one candidate node. (With overlapping
-\* rules the code as found keeps calling the replicator with an EMPTY candidate list: a holder remembered from
-\* an earlier rule does not lower the shortage of a later rule - a phantom shortage that copies nothing.)
-Replicates(d) == \E k \in 1..Len(d.tasks) : Len(d.tasks[k].nodes) > 0
-Quiet(hs) == \A n \in hs : LET d == Decide27(n, hs, {}, {}) IN ~Replicates(d) /\ d.del = "none"
-NoTasks(hs) == \A n \in hs : ~Replicates(Decide27(n, hs, {}, {}))
-r\* a check "replicates" when it hands the replicator a task with at least one candidate node. (With overlapping
-\* rules the code as found keeps calling the replicator with an EMPTY candidate list: a holder remembered from
-\* an earlier rule does not lower the shortage of a later rule - a phantom shortage that copies nothing.)
-Replicates(d) == \E k \in 1..Len(d.tasks) : Len(d.tasks[k].nodes) > 0
-Quiet(hs) == \A n \in hs : LET d == Decide27(n, hs, {}, {}) IN ~Replicates(d) /\ d.del = "none"
-NoTasks(hs) == \A n \in hs : ~Replicates(Decide27(n, hs, {}, {}))
-e\* a check "replicates" when it hands the replicator a task with at least one candidate node. (With overlapping
-\* rules the code as found keeps calling the replicator with an EMPTY candidate list: a holder remembered from
-\* an earlier rule does not lower the shortage of a later rule - a phantom shortage that copies nothing.)
-Replicates(d) == \E k \in 1..Len(d.tasks) : Len(d.tasks[k].nodes) > 0
-Quiet(hs) == \A n \in hs : LET d == Decide27(n, hs, {}, {}) IN ~Replicates(d) /\ d.del = "none"
-NoTasks(hs) == \A n \in hs : ~Replicates(Decide27(n, hs, {}, {}))
-n\* a check "replicates" when it hands the replicator a task with at least one candidate node. (With overlapping
-\* rules the code as found keeps calling the replicator with an EMPTY candidate list: a holder remembered from
-\* an earlier rule does not lower the shortage of a later rule - a phantom shortage that copies nothing.)
-Replicates(d) == \E k \in 1..Len(d.tasks) : Len(d.tasks[k].nodes) > 0
-Quiet(hs) == \A n \in hs : LET d == Decide27(n, hs, {}, {}) IN ~Replicates(d) /\ d.del = "none"
-NoTasks(hs) == \A n \in hs : ~Replicates(Decide27(n, hs, {}, {}))
-t\* a check "replicates" when it hands the replicator a task with at least one candidate node. (With overlapping
-\* rules the code as found keeps calling the replicator with an EMPTY candidate list: a holder remembered from
-\* an earlier rule does not lower the shortage of a later rule - a phantom shortage that copies nothing.)
-Replicates(d) == \E k \in 1..Len(d.tasks) : Len(d.tasks[k].nodes) > 0
-Quiet(hs) == \A n \in hs : LET d == Decide27(n, hs, {}, {}) IN ~Replicates(d) /\ d.del = "none"
-NoTasks(hs) == \A n \in hs : ~Replicates(Decide27(n, hs, {}, {}))
- \* a check "replicates" when it hands the replicator a task with at least one candidate node. (With overlapping
-\* rules the code as found keeps calling the replicator with an EMPTY candidate list: a holder remembered from
-\* an earlier rule does not lower the shortage of a later rule - a phantom shortage that copies nothing.)
-Replicates(d) == \E k \in 1..Len(d.tasks) : Len(d.tasks[k].nodes) > 0
-Quiet(hs) == \A n \in hs : LET d == Decide27(n, hs, {}, {}) IN ~Replicates(d) /\ d.del = "none"
-NoTasks(hs) == \A n \in hs : ~Replicates(Decide27(n, hs, {}, {}))
-h\* a check "replicates" when it hands the replicator a task with at least one candidate node. (With overlapping
-\* rules the code as found keeps calling the replicator with an EMPTY candidate list: a holder remembered from
-\* an earlier rule does not lower the shortage of a later rule - a phantom shortage that copies nothing.)
-Replicates(d) == \E k \in 1..Len(d.tasks) : Len(d.tasks[k].nodes) > 0
-Quiet(hs) == \A n \in hs : LET d == Decide27(n, hs, {}, {}) IN ~Replicates(d) /\ d.del = "none"
-NoTasks(hs) == \A n \in hs : ~Replicates(Decide27(n, hs, {}, {}))
-o\* a check "replicates" when it hands the replicator a task with at least one candidate node. (With overlapping
-\* rules the code as found keeps calling the replicator with an EMPTY candidate list: a holder remembered from
-\* an earlier rule does not lower the shortage of a later rule - a phantom shortage that copies nothing.)
-Replicates(d) == \E k \in 1..Len(d.tasks) : Len(d.tasks[k].nodes) > 0
-Quiet(hs) == \A n \in hs : LET d == Decide27(n, hs, {}, {}) IN ~Replicates(d) /\ d.del = "none"
-NoTasks(hs) == \A n \in hs : ~Replicates(Decide27(n, hs, {}, {}))
-l\* a check "replicates" when it hands the replicator a task with at least one candidate node. (With overlapping
-\* rules the code as found keeps calling the replicator with an EMPTY candidate list: a holder remembered from
-\* an earlier rule does not lower the shortage of a later rule - a phantom shortage that copies nothing.)
-Replicates(d) == \E k \in 1..Len(d.tasks) : Len(d.tasks[k].nodes) > 0
-Quiet(hs) == \A n \in hs : LET d == Decide27(n, hs, {}, {}) IN ~Replicates(d) /\ d.del = "none"
-NoTasks(hs) == \A n \in hs : ~Replicates(Decide27(n, hs, {}, {}))
-d\* a check "replicates" when it hands the replicator a task with at least one candidate node. (With overlapping
-\* rules the code as found keeps calling the replicator with an EMPTY candidate list: a holder remembered from
-\* an earlier rule does not lower the shortage of a later rule - a phantom shortage that copies nothing.)
-Replicates(d) == \E k \in 1..Len(d.tasks) : Len(d.tasks[k].nodes) > 0
-Quiet(hs) == \A n \in hs : LET d == Decide27(n, hs, {}, {}) IN ~Replicates(d) /\ d.del = "none"
-NoTasks(hs) == \A n \in hs : ~Replicates(Decide27(n, hs, {}, {}))
-e\* a check "replicates" when it hands the replicator a task with at least one candidate node. (With overlapping
-\* rules the code as found keeps calling the replicator with an EMPTY candidate list: a holder remembered from
-\* an earlier rule does not lower the shortage of a later rule - a phantom shortage that copies nothing.)
-Replicates(d) == \E k \in 1..Len(d.tasks) : Len(d.tasks[k].nodes) > 0
-Quiet(hs) == \A n \in hs : LET d == Decide27(n, hs, {}, {}) IN ~Replicates(d) /\ d.del = "none"
-NoTasks(hs) == \A n \in hs : ~Replicates(Decide27(n, hs, {}, {}))
-r\* a check "replicates" when it hands the replicator a task with at least one candidate node. (With overlapping
-\* rules the code as found keeps calling the replicator with an EMPTY candidate list: a holder remembered from
-\* an earlier rule does not lower the shortage of a later rule - a phantom shortage that copies nothing.)
-Replicates(d) == \E k \in 1..Len(d.tasks) : Len(d.tasks[k].nodes) > 0
-Quiet(hs) == \A n \in hs : LET d == Decide27(n, hs, {}, {}) IN ~Replicates(d) /\ d.del = "none"
-NoTasks(hs) == \A n \in hs : ~Replicates(Decide27(n, hs, {}, {}))
- \* a check "replicates" when it hands the replicator a task with at least one candidate node. (With overlapping
-\* rules the code as found keeps calling the replicator with an EMPTY candidate list: a holder remembered from
-\* an earlier rule does not lower the shortage of a later rule - a phantom shortage that copies nothing.)
-Replicates(d) == \E k \in 1..Len(d.tasks) : Len(d.tasks[k].nodes) > 0
-Quiet(hs) == \A n \in hs : LET d == Decide27(n, hs, {}, {}) IN ~Replicates(d) /\ d.del = "none"
-NoTasks(hs) == \A n \in hs : ~Replicates(Decide27(n, hs, {}, {}))
-c\* a check "replicates" when it hands the replicator a task with at least one candidate node. (With overlapping
-\* rules the code as found keeps calling the replicator with an EMPTY candidate list: a holder remembered from
-\* an earlier rule does not lower the shortage of a later rule - a phantom shortage that copies nothing.)
-Replicates(d) == \E k \in 1..Len(d.tasks) : Len(d.tasks[k].nodes) > 0
-Quiet(hs) == \A n \in hs : LET d == Decide27(n, hs, {}, {}) IN ~Replicates(d) /\ d.del = "none"
-NoTasks(hs) == \A n \in hs : ~Replicates(Decide27(n, hs, {}, {}))
-h\* a check "replicates" when it hands the replicator a task with at least one candidate node. (With overlapping
-\* rules the code as found keeps calling the replicator with an EMPTY candidate list: a holder remembered from
-\* an earlier rule does not lower the shortage of a later rule - a phantom shortage that copies nothing.)
-Replicates(d) == \E k \in 1..Len(d.tasks) : Len(d.tasks[k].nodes) > 0
-Quiet(hs) == \A n \in hs : LET d == Decide27(n, hs, {}, {}) IN ~Replicates(d) /\ d.del = "none"
-NoTasks(hs) == \A n \in hs : ~Replicates(Decide27(n, hs, {}, {}))
-e\* a check "replicates" when it hands the replicator a task with at least one candidate node. (With overlapping
-\* rules the code as found keeps calling the replicator with an EMPTY candidate list: a holder remembered from
-\* an earlier rule does not lower the shortage of a later rule - a phantom shortage that copies nothing.)
-Replicates(d) == \E k \in 1..Len(d.tasks) : Len(d.tasks[k].nodes) > 0
-Quiet(hs) == \A n \in hs : LET d == Decide27(n, hs, {}, {}) IN ~Replicates(d) /\ d.del = "none"
-NoTasks(hs) == \A n \in hs : ~Replicates(Decide27(n, hs, {}, {}))
-c\* a check "replicates" when it hands the replicator a task with at least one candidate node. (With overlapping
-\* rules the code as found keeps calling the replicator with an EMPTY candidate list: a holder remembered from
-\* an earlier rule does not lower the shortage of a later rule - a phantom shortage that copies nothing.)
-Replicates(d) == \E k \in 1..Len(d.tasks) : Len(d.tasks[k].nodes) > 0
-Quiet(hs) == \A n \in hs : LET d == Decide27(n, hs, {}, {}) IN ~Replicates(d) /\ d.del = "none"
-NoTasks(hs) == \A n \in hs : ~Replicates(Decide27(n, hs, {}, {}))
-k\* a check "replicates" when it hands the replicator a task with at least one candidate node. (With overlapping
-\* rules the code as found keeps calling the replicator with an EMPTY candidate list: a holder remembered from
-\* an earlier rule does not lower the shortage of a later rule - a phantom shortage that copies nothing.)
-Replicates(d) == \E k \in 1..Len(d.tasks) : Len(d.tasks[k].nodes) > 0
-Quiet(hs) == \A n \in hs : LET d == Decide27(n, hs, {}, {}) IN ~Replicates(d) /\ d.del = "none"
-NoTasks(hs) == \A n \in hs : ~Replicates(Decide27(n, hs, {}, {}))
-s\* a check "replicates" when it hands the replicator a task with at least one candidate node. (With overlapping
-\* rules the code as found keeps calling the replicator with an EMPTY candidate list: a holder remembered from
-\* an earlier rule does not lower the shortage of a later rule - a phantom shortage that copies nothing.)
-Replicates(d) == \E k \in 1..Len(d.tasks) : Len(d.tasks[k].nodes) > 0
-Quiet(hs) == \A n \in hs : LET d == Decide27(n, hs, {}, {}) IN ~Replicates(d) /\ d.del = "none"
-NoTasks(hs) == \A n \in hs : ~Replicates(Decide27(n, hs, {}, {}))
- \* a check "replicates" when it hands the replicator a task with at least one candidate node. (With overlapping
-\* rules the code as found keeps calling the replicator with an EMPTY candidate list: a holder remembered from
-\* an earlier rule does not lower the shortage of a later rule - a phantom shortage that copies nothing.)
-Replicates(d) == \E k \in 1..Len(d.tasks) : Len(d.tasks[k].nodes) > 0
-Quiet(hs) == \A n \in hs : LET d == Decide27(n, hs, {}, {}) IN ~Replicates(d) /\ d.del = "none"
-NoTasks(hs) == \A n \in hs : ~Replicates(Decide27(n, hs, {}, {}))
-o\* a check "replicates" when it hands the replicator a task with at least one candidate node. (With overlapping
-\* rules the code as found keeps calling the replicator with an EMPTY candidate list: a holder remembered from
-\* an earlier rule does not lower the shortage of a later rule - a phantom shortage that copies nothing.)
-Replicates(d) == \E k \in 1..Len(d.tasks) : Len(d.tasks[k].nodes) > 0
-Quiet(hs) == \A n \in hs : LET d == Decide27(n, hs, {}, {}) IN ~Replicates(d) /\ d.del = "none"
-NoTasks(hs) == \A n \in hs : ~Replicates(Decide27(n, hs, {}, {}))
-n\* a check "replicates" when it hands the replicator a task with at least one candidate node. (With overlapping
-\* rules the code as found keeps calling the replicator with an EMPTY candidate list: a holder remembered from
-\* an earlier rule does not lower the shortage of a later rule - a phantom shortage that copies nothing.)
-Replicates(d) == \E k \in 1..Len(d.tasks) : Len(d.tasks[k].nodes) > 0
-Quiet(hs) == \A n \in hs : LET d == Decide27(n, hs, {}, {}) IN ~Replicates(d) /\ d.del = "none"
-NoTasks(hs) == \A n \in hs : ~Replicates(Decide27(n, hs, {}, {}))
-c\* a check "replicates" when it hands the replicator a task with at least one candidate node. (With overlapping
-\* rules the code as found keeps calling the replicator with an EMPTY candidate list: a holder remembered from
-\* an earlier rule does not lower the shortage of a later rule - a phantom shortage that copies nothing.)
-Replicates(d) == \E k \in 1..Len(d.tasks) : Len(d.tasks[k].nodes) > 0
-Quiet(hs) == \A n \in hs : LET d == Decide27(n, hs, {}, {}) IN ~Replicates(d) /\ d.del = "none"
-NoTasks(hs) == \A n \in hs : ~Replicates(Decide27(n, hs, {}, {}))
-e\* a check "replicates" when it hands the replicator a task with at least one candidate node. (With overlapping
-\* rules the code as found keeps calling the replicator with an EMPTY candidate list: a holder remembered from
-\* an earlier rule does not lower the shortage of a later rule - a phantom shortage that copies nothing.)
-Replicates(d) == \E k \in 1..Len(d.tasks) : Len(d.tasks[k].nodes) > 0
-Quiet(hs) == \A n \in hs : LET d == Decide27(n, hs, {}, {}) IN ~Replicates(d) /\ d.del = "none"
-NoTasks(hs) == \A n \in hs : ~Replicates(Decide27(n, hs, {}, {}))
- \* a check "replicates" when it hands the replicator a task with at least one candidate node. (With overlapping
-\* rules the code as found keeps calling the replicator with an EMPTY candidate list: a holder remembered from
-\* an earlier rule does not lower the shortage of a later rule - a phantom shortage that copies nothing.)
-Replicates(d) == \E k \in 1..Len(d.tasks) : Len(d.tasks[k].nodes) > 0
-Quiet(hs) == \A n \in hs : LET d == Decide27(n, hs, {}, {}) IN ~Replicates(d) /\ d.del = "none"
-NoTasks(hs) == \A n \in hs : ~Replicates(Decide27(n, hs, {}, {}))
-p\* a check "replicates" when it hands the replicator a task with at least one candidate node. (With overlapping
-\* rules the code as found keeps calling the replicator with an EMPTY candidate list: a holder remembered from
-\* an earlier rule does not lower the shortage of a later rule - a phantom shortage that copies nothing.)
-Replicates(d) == \E k \in 1..Len(d.tasks) : Len(d.tasks[k].nodes) > 0
-Quiet(hs) == \A n \in hs : LET d == Decide27(n, hs, {}, {}) IN ~Replicates(d) /\ d.del = "none"
-NoTasks(hs) == \A n \in hs : ~Replicates(Decide27(n, hs, {}, {}))
-e\* a check "replicates" when it hands the replicator a task with at least one candidate node. (With overlapping
-\* rules the code as found keeps calling the replicator with an EMPTY candidate list: a holder remembered from
-\* an earlier rule does not lower the shortage of a later rule - a phantom shortage that copies nothing.)
-Replicates(d) == \E k \in 1..Len(d.tasks) : Len(d.tasks[k].nodes) > 0
-Quiet(hs) == \A n \in hs : LET d == Decide27(n, hs, {}, {}) IN ~Replicates(d) /\ d.del = "none"
-NoTasks(hs) == \A n \in hs : ~Replicates(Decide27(n, hs, {}, {}))
-r\* a check "replicates" when it hands the replicator a task with at least one candidate node. (With overlapping
-\* rules the code as found keeps calling the replicator with an EMPTY candidate list: a holder remembered from
-\* an earlier rule does not lower the shortage of a later rule - a phantom shortage that copies nothing.)
-Replicates(d) == \E k \in 1..Len(d.tasks) : Len(d.tasks[k].nodes) > 0
-Quiet(hs) == \A n \in hs : LET d == Decide27(n, hs, {}, {}) IN ~Replicates(d) /\ d.del = "none"
-NoTasks(hs) == \A n \in hs : ~Replicates(Decide27(n, hs, {}, {}))
- \* a check "replicates" when it hands the replicator a task with at least one candidate node. (With overlapping
-\* rules the code as found keeps calling the replicator with an EMPTY candidate list: a holder remembered from
-\* an earlier rule does not lower the shortage of a later rule - a phantom shortage that copies nothing.)
-Replicates(d) == \E k \in 1..Len(d.tasks) : Len(d.tasks[k].nodes) > 0
-Quiet(hs) == \A n \in hs : LET d == Decide27(n, hs, {}, {}) IN ~Replicates(d) /\ d.del = "none"
-NoTasks(hs) == \A n \in hs : ~Replicates(Decide27(n, hs, {}, {}))
-r\* a check "replicates" when it hands the replicator a task with at least one candidate node. (With overlapping
-\* rules the code as found keeps calling the replicator with an EMPTY candidate list: a holder remembered from
-\* an earlier rule does not lower the shortage of a later rule - a phantom shortage that copies nothing.)
-Replicates(d) == \E k \in 1..Len(d.tasks) : Len(d.tasks[k].nodes) > 0
-Quiet(hs) == \A n \in hs : LET d == Decide27(n, hs, {}, {}) IN ~Replicates(d) /\ d.del = "none"
-NoTasks(hs) == \A n \in hs : ~Replicates(Decide27(n, hs, {}, {}))
-o\* a check "replicates" when it hands the replicator a task with at least one candidate node. (With overlapping
-\* rules the code as found keeps calling the replicator with an EMPTY candidate list: a holder remembered from
-\* an earlier rule does not lower the shortage of a later rule - a phantom shortage that copies nothing.)
-Replicates(d) == \E k \in 1..Len(d.tasks) : Len(d.tasks[k].nodes) > 0
-Quiet(hs) == \A n \in hs : LET d == Decide27(n, hs, {}, {}) IN ~Replicates(d) /\ d.del = "none"
-NoTasks(hs) == \A n \in hs : ~Replicates(Decide27(n, hs, {}, {}))
-u\* a check "replicates" when it hands the replicator a task with at least one candidate node. (With overlapping
-\* rules the code as found keeps calling the replicator with an EMPTY candidate list: a holder remembered from
-\* an earlier rule does not lower the shortage of a later rule - a phantom shortage that copies nothing.)
-Replicates(d) == \E k \in 1..Len(d.tasks) : Len(d.tasks[k].nodes) > 0
-Quiet(hs) == \A n \in hs : LET d == Decide27(n, hs, {}, {}) IN ~Replicates(d) /\ d.del = "none"
-NoTasks(hs) == \A n \in hs : ~Replicates(Decide27(n, hs, {}, {}))
-n\* a check "replicates" when it hands the replicator a task with at least one candidate node. (With overlapping
-\* rules the code as found keeps calling the replicator with an EMPTY candidate list: a holder remembered from
-\* an earlier rule does not lower the shortage of a later rule - a phantom shortage that copies nothing.)
-Replicates(d) == \E k \in 1..Len(d.tasks) : Len(d.tasks[k].nodes) > 0
-Quiet(hs) == \A n \in hs : LET d == Decide27(n, hs, {}, {}) IN ~Replicates(d) /\ d.del = "none"
-NoTasks(hs) == \A n \in hs : ~Replicates(Decide27(n, hs, {}, {}))
-d\* a check "replicates" when it hands the replicator a task with at least one candidate node. (With overlapping
-\* rules the code as found keeps calling the replicator with an EMPTY candidate list: a holder remembered from
-\* an earlier rule does not lower the shortage of a later rule - a phantom shortage that copies nothing.)
-Replicates(d) == \E k \in 1..Len(d.tasks) : Len(d.tasks[k].nodes) > 0
-Quiet(hs) == \A n \in hs : LET d == Decide27(n, hs, {}, {}) IN ~Replicates(d) /\ d.del = "none"
-NoTasks(hs) == \A n \in hs : ~Replicates(Decide27(n, hs, {}, {}))
-
-\* a check "replicates" when it hands the replicator a task with at least one candidate node. (With overlapping
-\* rules the code as found keeps calling the replicator with an EMPTY candidate list: a holder remembered from
-\* an earlier rule does not lower the shortage of a later rule - a phantom shortage that copies nothing.)
-Replicates(d) == \E k \in 1..Len(d.tasks) : Len(d.tasks[k].nodes) > 0
-Quiet(hs) == \A n \in hs : LET d == Decide27(n, hs, {}, {}) IN ~Replicates(d) /\ d.del = "none"
-NoTasks(hs) == \A n \in hs : ~Replicates(Decide27(n, hs, {}, {}))
-R\* a check "replicates" when it hands the replicator a task with at least one candidate node. (With overlapping
-\* rules the code as found keeps calling the replicator with an EMPTY candidate list: a holder remembered from
-\* an earlier rule does not lower the shortage of a later rule - a phantom shortage that copies nothing.)
-Replicates(d) == \E k \in 1..Len(d.tasks) : Len(d.tasks[k].nodes) > 0
-Quiet(hs) == \A n \in hs : LET d == Decide27(n, hs, {}, {}) IN ~Replicates(d) /\ d.del = "none"
-NoTasks(hs) == \A n \in hs : ~Replicates(Decide27(n, hs, {}, {}))
-o\* a check "replicates" when it hands the replicator a task with at least one candidate node. (With overlapping
-\* rules the code as found keeps calling the replicator with an EMPTY candidate list: a holder remembered from
-\* an earlier rule does not lower the shortage of a later rule - a phantom shortage that copies nothing.)
-Replicates(d) == \E k \in 1..Len(d.tasks) : Len(d.tasks[k].nodes) > 0
-Quiet(hs) == \A n \in hs : LET d == Decide27(n, hs, {}, {}) IN ~Replicates(d) /\ d.del = "none"
-NoTasks(hs) == \A n \in hs : ~Replicates(Decide27(n, hs, {}, {}))
-u\* a check "replicates" when it hands the replicator a task with at least one candidate node. (With overlapping
-\* rules the code as found keeps calling the replicator with an EMPTY candidate list: a holder remembered from
-\* an earlier rule does not lower the shortage of a later rule - a phantom shortage that copies nothing.)
-Replicates(d) == \E k \in 1..Len(d.tasks) : Len(d.tasks[k].nodes) > 0
-Quiet(hs) == \A n \in hs : LET d == Decide27(n, hs, {}, {}) IN ~Replicates(d) /\ d.del = "none"
-NoTasks(hs) == \A n \in hs : ~Replicates(Decide27(n, hs, {}, {}))
-n\* a check "replicates" when it hands the replicator a task with at least one candidate node. (With overlapping
-\* rules the code as found keeps calling the replicator with an EMPTY candidate list: a holder remembered from
-\* an earlier rule does not lower the shortage of a later rule - a phantom shortage that copies nothing.)
-Replicates(d) == \E k \in 1..Len(d.tasks) : Len(d.tasks[k].nodes) > 0
-Quiet(hs) == \A n \in hs : LET d == Decide27(n, hs, {}, {}) IN ~Replicates(d) /\ d.del = "none"
-NoTasks(hs) == \A n \in hs : ~Replicates(Decide27(n, hs, {}, {}))
-d\* a check "replicates" when it hands the replicator a task with at least one candidate node. (With overlapping
-\* rules the code as found keeps calling the replicator with an EMPTY candidate list: a holder remembered from
-\* an earlier rule does not lower the shortage of a later rule - a phantom shortage that copies nothing.)
-Replicates(d) == \E k \in 1..Len(d.tasks) : Len(d.tasks[k].nodes) > 0
-Quiet(hs) == \A n \in hs : LET d == Decide27(n, hs, {}, {}) IN ~Replicates(d) /\ d.del = "none"
-NoTasks(hs) == \A n \in hs : ~Replicates(Decide27(n, hs, {}, {}))
-R\* a check "replicates" when it hands the replicator a task with at least one candidate node. (With overlapping
-\* rules the code as found keeps calling the replicator with an EMPTY candidate list: a holder remembered from
-\* an earlier rule does not lower the shortage of a later rule - a phantom shortage that copies nothing.)
-Replicates(d) == \E k \in 1..Len(d.tasks) : Len(d.tasks[k].nodes) > 0
-Quiet(hs) == \A n \in hs : LET d == Decide27(n, hs, {}, {}) IN ~Replicates(d) /\ d.del = "none"
-NoTasks(hs) == \A n \in hs : ~Replicates(Decide27(n, hs, {}, {}))
-u\* a check "replicates" when it hands the replicator a task with at least one candidate node. (With overlapping
-\* rules the code as found keeps calling the replicator with an EMPTY candidate list: a holder remembered from
-\* an earlier rule does not lower the shortage of a later rule - a phantom shortage that copies nothing.)
-Replicates(d) == \E k \in 1..Len(d.tasks) : Len(d.tasks[k].nodes) > 0
-Quiet(hs) == \A n \in hs : LET d == Decide27(n, hs, {}, {}) IN ~Replicates(d) /\ d.del = "none"
-NoTasks(hs) == \A n \in hs : ~Replicates(Decide27(n, hs, {}, {}))
-n\* a check "replicates" when it hands the replicator a task with at least one candidate node. (With overlapping
-\* rules the code as found keeps calling the replicator with an EMPTY candidate list: a holder remembered from
-\* an earlier rule does not lower the shortage of a later rule - a phantom shortage that copies nothing.)
-Replicates(d) == \E k \in 1..Len(d.tasks) : Len(d.tasks[k].nodes) > 0
-Quiet(hs) == \A n \in hs : LET d == Decide27(n, hs, {}, {}) IN ~Replicates(d) /\ d.del = "none"
-NoTasks(hs) == \A n \in hs : ~Replicates(Decide27(n, hs, {}, {}))
-(\* a check "replicates" when it hands the replicator a task with at least one candidate node. (With overlapping
-\* rules the code as found keeps calling the replicator with an EMPTY candidate list: a holder remembered from
-\* an earlier rule does not lower the shortage of a later rule - a phantom shortage that copies nothing.)
-Replicates(d) == \E k \in 1..Len(d.tasks) : Len(d.tasks[k].nodes) > 0
-Quiet(hs) == \A n \in hs : LET d == Decide27(n, hs, {}, {}) IN ~Replicates(d) /\ d.del = "none"
-NoTasks(hs) == \A n \in hs : ~Replicates(Decide27(n, hs, {}, {}))
-n\* a check "replicates" when it hands the replicator a task with at least one candidate node. (With overlapping
-\* rules the code as found keeps calling the replicator with an EMPTY candidate list: a holder remembered from
-\* an earlier rule does not lower the shortage of a later rule - a phantom shortage that copies nothing.)
-Replicates(d) == \E k \in 1..Len(d.tasks) : Len(d.tasks[k].nodes) > 0
-Quiet(hs) == \A n \in hs : LET d == Decide27(n, hs, {}, {}) IN ~Replicates(d) /\ d.del = "none"
-NoTasks(hs) == \A n \in hs : ~Replicates(Decide27(n, hs, {}, {}))
-)\* a check "replicates" when it hands the replicator a task with at least one candidate node. (With overlapping
-\* rules the code as found keeps calling the replicator with an EMPTY candidate list: a holder remembered from
-\* an earlier rule does not lower the shortage of a later rule - a phantom shortage that copies nothing.)
-Replicates(d) == \E k \in 1..Len(d.tasks) : Len(d.tasks[k].nodes) > 0
-Quiet(hs) == \A n \in hs : LET d == Decide27(n, hs, {}, {}) IN ~Replicates(d) /\ d.del = "none"
-NoTasks(hs) == \A n \in hs : ~Replicates(Decide27(n, hs, {}, {}))
- \* a check "replicates" when it hands the replicator a task with at least one candidate node. (With overlapping
-\* rules the code as found keeps calling the replicator with an EMPTY candidate list: a holder remembered from
-\* an earlier rule does not lower the shortage of a later rule - a phantom shortage that copies nothing.)
-Replicates(d) == \E k \in 1..Len(d.tasks) : Len(d.tasks[k].nodes) > 0
-Quiet(hs) == \A n \in hs : LET d == Decide27(n, hs, {}, {}) IN ~Replicates(d) /\ d.del = "none"
-NoTasks(hs) == \A n \in hs : ~Replicates(Decide27(n, hs, {}, {}))
-=\* a check "replicates" when it hands the replicator a task with at least one candidate node. (With overlapping
-\* rules the code as found keeps calling the replicator with an EMPTY candidate list: a holder remembered from
-\* an earlier rule does not lower the shortage of a later rule - a phantom shortage that copies nothing.)
-Replicates(d) == \E k \in 1..Len(d.tasks) : Len(d.tasks[k].nodes) > 0
-Quiet(hs) == \A n \in hs : LET d == Decide27(n, hs, {}, {}) IN ~Replicates(d) /\ d.del = "none"
-NoTasks(hs) == \A n \in hs : ~Replicates(Decide27(n, hs, {}, {}))
-=\* a check "replicates" when it hands the replicator a task with at least one candidate node. (With overlapping
-\* rules the code as found keeps calling the replicator with an EMPTY candidate list: a holder remembered from
-\* an earlier rule does not lower the shortage of a later rule - a phantom shortage that copies nothing.)
-Replicates(d) == \E k \in 1..Len(d.tasks) : Len(d.tasks[k].nodes) > 0
-Quiet(hs) == \A n \in hs : LET d == Decide27(n, hs, {}, {}) IN ~Replicates(d) /\ d.del = "none"
-NoTasks(hs) == \A n \in hs : ~Replicates(Decide27(n, hs, {}, {}))
- \* a check "replicates" when it hands the replicator a task with at least one candidate node. (With overlapping
-\* rules the code as found keeps calling the replicator with an EMPTY candidate list: a holder remembered from
-\* an earlier rule does not lower the shortage of a later rule - a phantom shortage that copies nothing.)
-Replicates(d) == \E k \in 1..Len(d.tasks) : Len(d.tasks[k].nodes) > 0
-Quiet(hs) == \A n \in hs : LET d == Decide27(n, hs, {}, {}) IN ~Replicates(d) /\ d.del = "none"
-NoTasks(hs) == \A n \in hs : ~Replicates(Decide27(n, hs, {}, {}))
-/\* a check "replicates" when it hands the replicator a task with at least one candidate node. (With overlapping
-\* rules the code as found keeps calling the replicator with an EMPTY candidate list: a holder remembered from
-\* an earlier rule does not lower the shortage of a later rule - a phantom shortage that copies nothing.)
-Replicates(d) == \E k \in 1..Len(d.tasks) : Len(d.tasks[k].nodes) > 0
-Quiet(hs) == \A n \in hs : LET d == Decide27(n, hs, {}, {}) IN ~Replicates(d) /\ d.del = "none"
-NoTasks(hs) == \A n \in hs : ~Replicates(Decide27(n, hs, {}, {}))
-\\* a check "replicates" when it hands the replicator a task with at least one candidate node. (With overlapping
-\* rules the code as found keeps calling the replicator with an EMPTY candidate list: a holder remembered from
-\* an earlier rule does not lower the shortage of a later rule - a phantom shortage that copies nothing.)
-Replicates(d) == \E k \in 1..Len(d.tasks) : Len(d.tasks[k].nodes) > 0
-Quiet(hs) == \A n \in hs : LET d == Decide27(n, hs, {}, {}) IN ~Replicates(d) /\ d.del = "none"
-NoTasks(hs) == \A n \in hs : ~Replicates(Decide27(n, hs, {}, {}))
- \* a check "replicates" when it hands the replicator a task with at least one candidate node. (With overlapping
-\* rules the code as found keeps calling the replicator with an EMPTY candidate list: a holder remembered from
-\* an earlier rule does not lower the shortage of a later rule - a phantom shortage that copies nothing.)
-Replicates(d) == \E k \in 1..Len(d.tasks) : Len(d.tasks[k].nodes) > 0
-Quiet(hs) == \A n \in hs : LET d == Decide27(n, hs, {}, {}) IN ~Replicates(d) /\ d.del = "none"
-NoTasks(hs) == \A n \in hs : ~Replicates(Decide27(n, hs, {}, {}))
-n\* a check "replicates" when it hands the replicator a task with at least one candidate node. (With overlapping
-\* rules the code as found keeps calling the replicator with an EMPTY candidate list: a holder remembered from
-\* an earlier rule does not lower the shortage of a later rule - a phantom shortage that copies nothing.)
-Replicates(d) == \E k \in 1..Len(d.tasks) : Len(d.tasks[k].nodes) > 0
-Quiet(hs) == \A n \in hs : LET d == Decide27(n, hs, {}, {}) IN ~Replicates(d) /\ d.del = "none"
-NoTasks(hs) == \A n \in hs : ~Replicates(Decide27(n, hs, {}, {}))
- \* a check "replicates" when it hands the replicator a task with at least one candidate node. (With overlapping
-\* rules the code as found keeps calling the replicator with an EMPTY candidate list: a holder remembered from
-\* an earlier rule does not lower the shortage of a later rule - a phantom shortage that copies nothing.)
-Replicates(d) == \E k \in 1..Len(d.tasks) : Len(d.tasks[k].nodes) > 0
-Quiet(hs) == \A n \in hs : LET d == Decide27(n, hs, {}, {}) IN ~Replicates(d) /\ d.del = "none"
-NoTasks(hs) == \A n \in hs : ~Replicates(Decide27(n, hs, {}, {}))
-\\* a check "replicates" when it hands the replicator a task with at least one candidate node. (With overlapping
-\* rules the code as found keeps calling the replicator with an EMPTY candidate list: a holder remembered from
-\* an earlier rule does not lower the shortage of a later rule - a phantom shortage that copies nothing.)
-Replicates(d) == \E k \in 1..Len(d.tasks) : Len(d.tasks[k].nodes) > 0
-Quiet(hs) == \A n \in hs : LET d == Decide27(n, hs, {}, {}) IN ~Replicates(d) /\ d.del = "none"
-NoTasks(hs) == \A n \in hs : ~Replicates(Decide27(n, hs, {}, {}))
-n\* a check "replicates" when it hands the replicator a task with at least one candidate node. (With overlapping
-\* rules the code as found keeps calling the replicator with an EMPTY candidate list: a holder remembered from
-\* an earlier rule does not lower the shortage of a later rule - a phantom shortage that copies nothing.)
-Replicates(d) == \E k \in 1..Len(d.tasks) : Len(d.tasks[k].nodes) > 0
-Quiet(hs) == \A n \in hs : LET d == Decide27(n, hs, {}, {}) IN ~Replicates(d) /\ d.del = "none"
-NoTasks(hs) == \A n \in hs : ~Replicates(Decide27(n, hs, {}, {}))
-o\* a check "replicates" when it hands the replicator a task with at least one candidate node. (With overlapping
-\* rules the code as found keeps calling the replicator with an EMPTY candidate list: a holder remembered from
-\* an earlier rule does not lower the shortage of a later rule - a phantom shortage that copies nothing.)
-Replicates(d) == \E k \in 1..Len(d.tasks) : Len(d.tasks[k].nodes) > 0
-Quiet(hs) == \A n \in hs : LET d == Decide27(n, hs, {}, {}) IN ~Replicates(d) /\ d.del = "none"
-NoTasks(hs) == \A n \in hs : ~Replicates(Decide27(n, hs, {}, {}))
-t\* a check "replicates" when it hands the replicator a task with at least one candidate node. (With overlapping
-\* rules the code as found keeps calling the replicator with an EMPTY candidate list: a holder remembered from
-\* an earlier rule does not lower the shortage of a later rule - a phantom shortage that copies nothing.)
-Replicates(d) == \E k \in 1..Len(d.tasks) : Len(d.tasks[k].nodes) > 0
-Quiet(hs) == \A n \in hs : LET d == Decide27(n, hs, {}, {}) IN ~Replicates(d) /\ d.del = "none"
-NoTasks(hs) == \A n \in hs : ~Replicates(Decide27(n, hs, {}, {}))
-i\* a check "replicates" when it hands the replicator a task with at least one candidate node. (With overlapping
-\* rules the code as found keeps calling the replicator with an EMPTY candidate list: a holder remembered from
-\* an earlier rule does not lower the shortage of a later rule - a phantom shortage that copies nothing.)
-Replicates(d) == \E k \in 1..Len(d.tasks) : Len(d.tasks[k].nodes) > 0
-Quiet(hs) == \A n \in hs : LET d == Decide27(n, hs, {}, {}) IN ~Replicates(d) /\ d.del = "none"
-NoTasks(hs) == \A n \in hs : ~Replicates(Decide27(n, hs, {}, {}))
-n\* a check "replicates" when it hands the replicator a task with at least one candidate node. (With overlapping
-\* rules the code as found keeps calling the replicator with an EMPTY candidate list: a holder remembered from
-\* an earlier rule does not lower the shortage of a later rule - a phantom shortage that copies nothing.)
-Replicates(d) == \E k \in 1..Len(d.tasks) : Len(d.tasks[k].nodes) > 0
-Quiet(hs) == \A n \in hs : LET d == Decide27(n, hs, {}, {}) IN ~Replicates(d) /\ d.del = "none"
-NoTasks(hs) == \A n \in hs : ~Replicates(Decide27(n, hs, {}, {}))
- \* a check "replicates" when it hands the replicator a task with at least one candidate node. (With overlapping
-\* rules the code as found keeps calling the replicator with an EMPTY candidate list: a holder remembered from
-\* an earlier rule does not lower the shortage of a later rule - a phantom shortage that copies nothing.)
-Replicates(d) == \E k \in 1..Len(d.tasks) : Len(d.tasks[k].nodes) > 0
-Quiet(hs) == \A n \in hs : LET d == Decide27(n, hs, {}, {}) IN ~Replicates(d) /\ d.del = "none"
-NoTasks(hs) == \A n \in hs : ~Replicates(Decide27(n, hs, {}, {}))
-r\* a check "replicates" when it hands the replicator a task with at least one candidate node. (With overlapping
-\* rules the code as found keeps calling the replicator with an EMPTY candidate list: a holder remembered from
-\* an earlier rule does not lower the shortage of a later rule - a phantom shortage that copies nothing.)
-Replicates(d) == \E k \in 1..Len(d.tasks) : Len(d.tasks[k].nodes) > 0
-Quiet(hs) == \A n \in hs : LET d == Decide27(n, hs, {}, {}) IN ~Replicates(d) /\ d.del = "none"
-NoTasks(hs) == \A n \in hs : ~Replicates(Decide27(n, hs, {}, {}))
-a\* a check "replicates" when it hands the replicator a task with at least one candidate node. (With overlapping
-\* rules the code as found keeps calling the replicator with an EMPTY candidate list: a holder remembered from
-\* an earlier rule does not lower the shortage of a later rule - a phantom shortage that copies nothing.)
-Replicates(d) == \E k \in 1..Len(d.tasks) : Len(d.tasks[k].nodes) > 0
-Quiet(hs) == \A n \in hs : LET d == Decide27(n, hs, {}, {}) IN ~Replicates(d) /\ d.del = "none"
-NoTasks(hs) == \A n \in hs : ~Replicates(Decide27(n, hs, {}, {}))
-n\* a check "replicates" when it hands the replicator a task with at least one candidate node. (With overlapping
-\* rules the code as found keeps calling the replicator with an EMPTY candidate list: a holder remembered from
-\* an earlier rule does not lower the shortage of a later rule - a phantom shortage that copies nothing.)
-Replicates(d) == \E k \in 1..Len(d.tasks) : Len(d.tasks[k].nodes) > 0
-Quiet(hs) == \A n \in hs : LET d == Decide27(n, hs, {}, {}) IN ~Replicates(d) /\ d.del = "none"
-NoTasks(hs) == \A n \in hs : ~Replicates(Decide27(n, hs, {}, {}))
-
-\* a check "replicates" when it hands the replicator a task with at least one candidate node. (With overlapping
-\* rules the code as found keeps calling the replicator with an EMPTY candidate list: a holder remembered from
-\* an earlier rule does not lower the shortage of a later rule - a phantom shortage that copies nothing.)
-Replicates(d) == \E k \in 1..Len(d.tasks) : Len(d.tasks[k].nodes) > 0
-Quiet(hs) == \A n \in hs : LET d == Decide27(n, hs, {}, {}) IN ~Replicates(d) /\ d.del = "none"
-NoTasks(hs) == \A n \in hs : ~Replicates(Decide27(n, hs, {}, {}))
- \* a check "replicates" when it hands the replicator a task with at least one candidate node. (With overlapping
-\* rules the code as found keeps calling the replicator with an EMPTY candidate list: a holder remembered from
-\* an earlier rule does not lower the shortage of a later rule - a phantom shortage that copies nothing.)
-Replicates(d) == \E k \in 1..Len(d.tasks) : Len(d.tasks[k].nodes) > 0
-Quiet(hs) == \A n \in hs : LET d == Decide27(n, hs, {}, {}) IN ~Replicates(d) /\ d.del = "none"
-NoTasks(hs) == \A n \in hs : ~Replicates(Decide27(n, hs, {}, {}))
- \* a check "replicates" when it hands the replicator a task with at least one candidate node. (With overlapping
-\* rules the code as found keeps calling the replicator with an EMPTY candidate list: a holder remembered from
-\* an earlier rule does not lower the shortage of a later rule - a phantom shortage that copies nothing.)
-Replicates(d) == \E k \in 1..Len(d.tasks) : Len(d.tasks[k].nodes) > 0
-Quiet(hs) == \A n \in hs : LET d == Decide27(n, hs, {}, {}) IN ~Replicates(d) /\ d.del = "none"
-NoTasks(hs) == \A n \in hs : ~Replicates(Decide27(n, hs, {}, {}))
- \* a check "replicates" when it hands the replicator a task with at least one candidate node. (With overlapping
-\* rules the code as found keeps calling the replicator with an EMPTY candidate list: a holder remembered from
-\* an earlier rule does not lower the shortage of a later rule - a phantom shortage that copies nothing.)
-Replicates(d) == \E k \in 1..Len(d.tasks) : Len(d.tasks[k].nodes) > 0
-Quiet(hs) == \A n \in hs : LET d == Decide27(n, hs, {}, {}) IN ~Replicates(d) /\ d.del = "none"
-NoTasks(hs) == \A n \in hs : ~Replicates(Decide27(n, hs, {}, {}))
- \* a check "replicates" when it hands the replicator a task with at least one candidate node. (With overlapping
-\* rules the code as found keeps calling the replicator with an EMPTY candidate list: a holder remembered from
-\* an earlier rule does not lower the shortage of a later rule - a phantom shortage that copies nothing.)
-Replicates(d) == \E k \in 1..Len(d.tasks) : Len(d.tasks[k].nodes) > 0
-Quiet(hs) == \A n \in hs : LET d == Decide27(n, hs, {}, {}) IN ~Replicates(d) /\ d.del = "none"
-NoTasks(hs) == \A n \in hs : ~Replicates(Decide27(n, hs, {}, {}))
- \* a check "replicates" when it hands the replicator a task with at least one candidate node. (With overlapping
-\* rules the code as found keeps calling the replicator with an EMPTY candidate list: a holder remembered from
-\* an earlier rule does not lower the shortage of a later rule - a phantom shortage that copies nothing.)
-Replicates(d) == \E k \in 1..Len(d.tasks) : Len(d.tasks[k].nodes) > 0
-Quiet(hs) == \A n \in hs : LET d == Decide27(n, hs, {}, {}) IN ~Replicates(d) /\ d.del = "none"
-NoTasks(hs) == \A n \in hs : ~Replicates(Decide27(n, hs, {}, {}))
- \* a check "replicates" when it hands the replicator a task with at least one candidate node. (With overlapping
-\* rules the code as found keeps calling the replicator with an EMPTY candidate list: a holder remembered from
-\* an earlier rule does not lower the shortage of a later rule - a phantom shortage that copies nothing.)
-Replicates(d) == \E k \in 1..Len(d.tasks) : Len(d.tasks[k].nodes) > 0
-Quiet(hs) == \A n \in hs : LET d == Decide27(n, hs, {}, {}) IN ~Replicates(d) /\ d.del = "none"
-NoTasks(hs) == \A n \in hs : ~Replicates(Decide27(n, hs, {}, {}))
- \* a check "replicates" when it hands the replicator a task with at least one candidate node. (With overlapping
-\* rules the code as found keeps calling the replicator with an EMPTY candidate list: a holder remembered from
-\* an earlier rule does not lower the shortage of a later rule - a phantom shortage that copies nothing.)
-Replicates(d) == \E k \in 1..Len(d.tasks) : Len(d.tasks[k].nodes) > 0
-Quiet(hs) == \A n \in hs : LET d == Decide27(n, hs, {}, {}) IN ~Replicates(d) /\ d.del = "none"
-NoTasks(hs) == \A n \in hs : ~Replicates(Decide27(n, hs, {}, {}))
- \* a check "replicates" when it hands the replicator a task with at least one candidate node. (With overlapping
-\* rules the code as found keeps calling the replicator with an EMPTY candidate list: a holder remembered from
-\* an earlier rule does not lower the shortage of a later rule - a phantom shortage that copies nothing.)
-Replicates(d) == \E k \in 1..Len(d.tasks) : Len(d.tasks[k].nodes) > 0
-Quiet(hs) == \A n \in hs : LET d == Decide27(n, hs, {}, {}) IN ~Replicates(d) /\ d.del = "none"
-NoTasks(hs) == \A n \in hs : ~Replicates(Decide27(n, hs, {}, {}))
- \* a check "replicates" when it hands the replicator a task with at least one candidate node. (With overlapping
-\* rules the code as found keeps calling the replicator with an EMPTY candidate list: a holder remembered from
-\* an earlier rule does not lower the shortage of a later rule - a phantom shortage that copies nothing.)
-Replicates(d) == \E k \in 1..Len(d.tasks) : Len(d.tasks[k].nodes) > 0
-Quiet(hs) == \A n \in hs : LET d == Decide27(n, hs, {}, {}) IN ~Replicates(d) /\ d.del = "none"
-NoTasks(hs) == \A n \in hs : ~Replicates(Decide27(n, hs, {}, {}))
- \* a check "replicates" when it hands the replicator a task with at least one candidate node. (With overlapping
-\* rules the code as found keeps calling the replicator with an EMPTY candidate list: a holder remembered from
-\* an earlier rule does not lower the shortage of a later rule - a phantom shortage that copies nothing.)
-Replicates(d) == \E k \in 1..Len(d.tasks) : Len(d.tasks[k].nodes) > 0
-Quiet(hs) == \A n \in hs : LET d == Decide27(n, hs, {}, {}) IN ~Replicates(d) /\ d.del = "none"
-NoTasks(hs) == \A n \in hs : ~Replicates(Decide27(n, hs, {}, {}))
- \* a check "replicates" when it hands the replicator a task with at least one candidate node. (With overlapping
-\* rules the code as found keeps calling the replicator with an EMPTY candidate list: a holder remembered from
-\* an earlier rule does not lower the shortage of a later rule - a phantom shortage that copies nothing.)
-Replicates(d) == \E k \in 1..Len(d.tasks) : Len(d.tasks[k].nodes) > 0
-Quiet(hs) == \A n \in hs : LET d == Decide27(n, hs, {}, {}) IN ~Replicates(d) /\ d.del = "none"
-NoTasks(hs) == \A n \in hs : ~Replicates(Decide27(n, hs, {}, {}))
- \* a check "replicates" when it hands the replicator a task with at least one candidate node. (With overlapping
-\* rules the code as found keeps calling the replicator with an EMPTY candidate list: a holder remembered from
-\* an earlier rule does not lower the shortage of a later rule - a phantom shortage that copies nothing.)
-Replicates(d) == \E k \in 1..Len(d.tasks) : Len(d.tasks[k].nodes) > 0
-Quiet(hs) == \A n \in hs : LET d == Decide27(n, hs, {}, {}) IN ~Replicates(d) /\ d.del = "none"
-NoTasks(hs) == \A n \in hs : ~Replicates(Decide27(n, hs, {}, {}))
- \* a check "replicates" when it hands the replicator a task with at least one candidate node. (With overlapping
-\* rules the code as found keeps calling the replicator with an EMPTY candidate list: a holder remembered from
-\* an earlier rule does not lower the shortage of a later rule - a phantom shortage that copies nothing.)
-Replicates(d) == \E k \in 1..Len(d.tasks) : Len(d.tasks[k].nodes) > 0
-Quiet(hs) == \A n \in hs : LET d == Decide27(n, hs, {}, {}) IN ~Replicates(d) /\ d.del = "none"
-NoTasks(hs) == \A n \in hs : ~Replicates(Decide27(n, hs, {}, {}))
- \* a check "replicates" when it hands the replicator a task with at least one candidate node. (With overlapping
-\* rules the code as found keeps calling the replicator with an EMPTY candidate list: a holder remembered from
-\* an earlier rule does not lower the shortage of a later rule - a phantom shortage that copies nothing.)
-Replicates(d) == \E k \in 1..Len(d.tasks) : Len(d.tasks[k].nodes) > 0
-Quiet(hs) == \A n \in hs : LET d == Decide27(n, hs, {}, {}) IN ~Replicates(d) /\ d.del = "none"
-NoTasks(hs) == \A n \in hs : ~Replicates(Decide27(n, hs, {}, {}))
- \* a check "replicates" when it hands the replicator a task with at least one candidate node. (With overlapping
-\* rules the code as found keeps calling the replicator with an EMPTY candidate list: a holder remembered from
-\* an earlier rule does not lower the shortage of a later rule - a phantom shortage that copies nothing.)
-Replicates(d) == \E k \in 1..Len(d.tasks) : Len(d.tasks[k].nodes) > 0
-Quiet(hs) == \A n \in hs : LET d == Decide27(n, hs, {}, {}) IN ~Replicates(d) /\ d.del = "none"
-NoTasks(hs) == \A n \in hs : ~Replicates(Decide27(n, hs, {}, {}))
-/\* a check "replicates" when it hands the replicator a task with at least one candidate node. (With overlapping
-\* rules the code as found keeps calling the replicator with an EMPTY candidate list: a holder remembered from
-\* an earlier rule does not lower the shortage of a later rule - a phantom shortage that copies nothing.)
-Replicates(d) == \E k \in 1..Len(d.tasks) : Len(d.tasks[k].nodes) > 0
-Quiet(hs) == \A n \in hs : LET d == Decide27(n, hs, {}, {}) IN ~Replicates(d) /\ d.del = "none"
-NoTasks(hs) == \A n \in hs : ~Replicates(Decide27(n, hs, {}, {}))
-\\* a check "replicates" when it hands the replicator a task with at least one candidate node. (With overlapping
-\* rules the code as found keeps calling the replicator with an EMPTY candidate list: a holder remembered from
-\* an earlier rule does not lower the shortage of a later rule - a phantom shortage that copies nothing.)
-Replicates(d) == \E k \in 1..Len(d.tasks) : Len(d.tasks[k].nodes) > 0
-Quiet(hs) == \A n \in hs : LET d == Decide27(n, hs, {}, {}) IN ~Replicates(d) /\ d.del = "none"
-NoTasks(hs) == \A n \in hs : ~Replicates(Decide27(n, hs, {}, {}))
- \* a check "replicates" when it hands the replicator a task with at least one candidate node. (With overlapping
-\* rules the code as found keeps calling the replicator with an EMPTY candidate list: a holder remembered from
-\* an earlier rule does not lower the shortage of a later rule - a phantom shortage that copies nothing.)
-Replicates(d) == \E k \in 1..Len(d.tasks) : Len(d.tasks[k].nodes) > 0
-Quiet(hs) == \A n \in hs : LET d == Decide27(n, hs, {}, {}) IN ~Replicates(d) /\ d.del = "none"
-NoTasks(hs) == \A n \in hs : ~Replicates(Decide27(n, hs, {}, {}))
-r\* a check "replicates" when it hands the replicator a task with at least one candidate node. (With overlapping
-\* rules the code as found keeps calling the replicator with an EMPTY candidate list: a holder remembered from
-\* an earlier rule does not lower the shortage of a later rule - a phantom shortage that copies nothing.)
-Replicates(d) == \E k \in 1..Len(d.tasks) : Len(d.tasks[k].nodes) > 0
-Quiet(hs) == \A n \in hs : LET d == Decide27(n, hs, {}, {}) IN ~Replicates(d) /\ d.del = "none"
-NoTasks(hs) == \A n \in hs : ~Replicates(Decide27(n, hs, {}, {}))
-o\* a check "replicates" when it hands the replicator a task with at least one candidate node. (With overlapping
-\* rules the code as found keeps calling the replicator with an EMPTY candidate list: a holder remembered from
-\* an earlier rule does not lower the shortage of a later rule - a phantom shortage that copies nothing.)
-Replicates(d) == \E k \in 1..Len(d.tasks) : Len(d.tasks[k].nodes) > 0
-Quiet(hs) == \A n \in hs : LET d == Decide27(n, hs, {}, {}) IN ~Replicates(d) /\ d.del = "none"
-NoTasks(hs) == \A n \in hs : ~Replicates(Decide27(n, hs, {}, {}))
-u\* a check "replicates" when it hands the replicator a task with at least one candidate node. (With overlapping
-\* rules the code as found keeps calling the replicator with an EMPTY candidate list: a holder remembered from
-\* an earlier rule does not lower the shortage of a later rule - a phantom shortage that copies nothing.)
-Replicates(d) == \E k \in 1..Len(d.tasks) : Len(d.tasks[k].nodes) > 0
-Quiet(hs) == \A n \in hs : LET d == Decide27(n, hs, {}, {}) IN ~Replicates(d) /\ d.del = "none"
-NoTasks(hs) == \A n \in hs : ~Replicates(Decide27(n, hs, {}, {}))
-n\* a check "replicates" when it hands the replicator a task with at least one candidate node. (With overlapping
-\* rules the code as found keeps calling the replicator with an EMPTY candidate list: a holder remembered from
-\* an earlier rule does not lower the shortage of a later rule - a phantom shortage that copies nothing.)
-Replicates(d) == \E k \in 1..Len(d.tasks) : Len(d.tasks[k].nodes) > 0
-Quiet(hs) == \A n \in hs : LET d == Decide27(n, hs, {}, {}) IN ~Replicates(d) /\ d.del = "none"
-NoTasks(hs) == \A n \in hs : ~Replicates(Decide27(n, hs, {}, {}))
-d\* a check "replicates" when it hands the replicator a task with at least one candidate node. (With overlapping
-\* rules the code as found keeps calling the replicator with an EMPTY candidate list: a holder remembered from
-\* an earlier rule does not lower the shortage of a later rule - a phantom shortage that copies nothing.)
-Replicates(d) == \E k \in 1..Len(d.tasks) : Len(d.tasks[k].nodes) > 0
-Quiet(hs) == \A n \in hs : LET d == Decide27(n, hs, {}, {}) IN ~Replicates(d) /\ d.del = "none"
-NoTasks(hs) == \A n \in hs : ~Replicates(Decide27(n, hs, {}, {}))
- \* a check "replicates" when it hands the replicator a task with at least one candidate node. (With overlapping
-\* rules the code as found keeps calling the replicator with an EMPTY candidate list: a holder remembered from
-\* an earlier rule does not lower the shortage of a later rule - a phantom shortage that copies nothing.)
-Replicates(d) == \E k \in 1..Len(d.tasks) : Len(d.tasks[k].nodes) > 0
-Quiet(hs) == \A n \in hs : LET d == Decide27(n, hs, {}, {}) IN ~Replicates(d) /\ d.del = "none"
-NoTasks(hs) == \A n \in hs : ~Replicates(Decide27(n, hs, {}, {}))
-<\* a check "replicates" when it hands the replicator a task with at least one candidate node. (With overlapping
-\* rules the code as found keeps calling the replicator with an EMPTY candidate list: a holder remembered from
-\* an earlier rule does not lower the shortage of a later rule - a phantom shortage that copies nothing.)
-Replicates(d) == \E k \in 1..Len(d.tasks) : Len(d.tasks[k].nodes) > 0
-Quiet(hs) == \A n \in hs : LET d == Decide27(n, hs, {}, {}) IN ~Replicates(d) /\ d.del = "none"
-NoTasks(hs) == \A n \in hs : ~Replicates(Decide27(n, hs, {}, {}))
-=\* a check "replicates" when it hands the replicator a task with at least one candidate node. (With overlapping
-\* rules the code as found keeps calling the replicator with an EMPTY candidate list: a holder remembered from
-\* an earlier rule does not lower the shortage of a later rule - a phantom shortage that copies nothing.)
-Replicates(d) == \E k \in 1..Len(d.tasks) : Len(d.tasks[k].nodes) > 0
-Quiet(hs) == \A n \in hs : LET d == Decide27(n, hs, {}, {}) IN ~Replicates(d) /\ d.del = "none"
-NoTasks(hs) == \A n \in hs : ~Replicates(Decide27(n, hs, {}, {}))
- \* a check "replicates" when it hands the replicator a task with at least one candidate node. (With overlapping
-\* rules the code as found keeps calling the replicator with an EMPTY candidate list: a holder remembered from
-\* an earlier rule does not lower the shortage of a later rule - a phantom shortage that copies nothing.)
-Replicates(d) == \E k \in 1..Len(d.tasks) : Len(d.tasks[k].nodes) > 0
-Quiet(hs) == \A n \in hs : LET d == Decide27(n, hs, {}, {}) IN ~Replicates(d) /\ d.del = "none"
-NoTasks(hs) == \A n \in hs : ~Replicates(Decide27(n, hs, {}, {}))
-M\* a check "replicates" when it hands the replicator a task with at least one candidate node. (With overlapping
-\* rules the code as found keeps calling the replicator with an EMPTY candidate list: a holder remembered from
-\* an earlier rule does not lower the shortage of a later rule - a phantom shortage that copies nothing.)
-Replicates(d) == \E k \in 1..Len(d.tasks) : Len(d.tasks[k].nodes) > 0
-Quiet(hs) == \A n \in hs : LET d == Decide27(n, hs, {}, {}) IN ~Replicates(d) /\ d.del = "none"
-NoTasks(hs) == \A n \in hs : ~Replicates(Decide27(n, hs, {}, {}))
-a\* a check "replicates" when it hands the replicator a task with at least one candidate node. (With overlapping
-\* rules the code as found keeps calling the replicator with an EMPTY candidate list: a holder remembered from
-\* an earlier rule does not lower the shortage of a later rule - a phantom shortage that copies nothing.)
-Replicates(d) == \E k \in 1..Len(d.tasks) : Len(d.tasks[k].nodes) > 0
-Quiet(hs) == \A n \in hs : LET d == Decide27(n, hs, {}, {}) IN ~Replicates(d) /\ d.del = "none"
-NoTasks(hs) == \A n \in hs : ~Replicates(Decide27(n, hs, {}, {}))
-x\* a check "replicates" when it hands the replicator a task with at least one candidate node. (With overlapping
-\* rules the code as found keeps calling the replicator with an EMPTY candidate list: a holder remembered from
-\* an earlier rule does not lower the shortage of a later rule - a phantom shortage that copies nothing.)
-Replicates(d) == \E k \in 1..Len(d.tasks) : Len(d.tasks[k].nodes) > 0
-Quiet(hs) == \A n \in hs : LET d == Decide27(n, hs, {}, {}) IN ~Replicates(d) /\ d.del = "none"
-NoTasks(hs) == \A n \in hs : ~Replicates(Decide27(n, hs, {}, {}))
-R\* a check "replicates" when it hands the replicator a task with at least one candidate node. (With overlapping
-\* rules the code as found keeps calling the replicator with an EMPTY candidate list: a holder remembered from
-\* an earlier rule does not lower the shortage of a later rule - a phantom shortage that copies nothing.)
-Replicates(d) == \E k \in 1..Len(d.tasks) : Len(d.tasks[k].nodes) > 0
-Quiet(hs) == \A n \in hs : LET d == Decide27(n, hs, {}, {}) IN ~Replicates(d) /\ d.del = "none"
-NoTasks(hs) == \A n \in hs : ~Replicates(Decide27(n, hs, {}, {}))
-o\* a check "replicates" when it hands the replicator a task with at least one candidate node. (With overlapping
-\* rules the code as found keeps calling the replicator with an EMPTY candidate list: a holder remembered from
-\* an earlier rule does not lower the shortage of a later rule - a phantom shortage that copies nothing.)
-Replicates(d) == \E k \in 1..Len(d.tasks) : Len(d.tasks[k].nodes) > 0
-Quiet(hs) == \A n \in hs : LET d == Decide27(n, hs, {}, {}) IN ~Replicates(d) /\ d.del = "none"
-NoTasks(hs) == \A n \in hs : ~Replicates(Decide27(n, hs, {}, {}))
-u\* a check "replicates" when it hands the replicator a task with at least one candidate node. (With overlapping
-\* rules the code as found keeps calling the replicator with an EMPTY candidate list: a holder remembered from
-\* an earlier rule does not lower the shortage of a later rule - a phantom shortage that copies nothing.)
-Replicates(d) == \E k \in 1..Len(d.tasks) : Len(d.tasks[k].nodes) > 0
-Quiet(hs) == \A n \in hs : LET d == Decide27(n, hs, {}, {}) IN ~Replicates(d) /\ d.del = "none"
-NoTasks(hs) == \A n \in hs : ~Replicates(Decide27(n, hs, {}, {}))
-n\* a check "replicates" when it hands the replicator a task with at least one candidate node. (With overlapping
-\* rules the code as found keeps calling the replicator with an EMPTY candidate list: a holder remembered from
-\* an earlier rule does not lower the shortage of a later rule - a phantom shortage that copies nothing.)
-Replicates(d) == \E k \in 1..Len(d.tasks) : Len(d.tasks[k].nodes) > 0
-Quiet(hs) == \A n \in hs : LET d == Decide27(n, hs, {}, {}) IN ~Replicates(d) /\ d.del = "none"
-NoTasks(hs) == \A n \in hs : ~Replicates(Decide27(n, hs, {}, {}))
-d\* a check "replicates" when it hands the replicator a task with at least one candidate node. (With overlapping
-\* rules the code as found keeps calling the replicator with an EMPTY candidate list: a holder remembered from
-\* an earlier rule does not lower the shortage of a later rule - a phantom shortage that copies nothing.)
-Replicates(d) == \E k \in 1..Len(d.tasks) : Len(d.tasks[k].nodes) > 0
-Quiet(hs) == \A n \in hs : LET d == Decide27(n, hs, {}, {}) IN ~Replicates(d) /\ d.del = "none"
-NoTasks(hs) == \A n \in hs : ~Replicates(Decide27(n, hs, {}, {}))
-s\* a check "replicates" when it hands the replicator a task with at least one candidate node. (With overlapping
-\* rules the code as found keeps calling the replicator with an EMPTY candidate list: a holder remembered from
-\* an earlier rule does not lower the shortage of a later rule - a phantom shortage that copies nothing.)
-Replicates(d) == \E k \in 1..Len(d.tasks) : Len(d.tasks[k].nodes) > 0
-Quiet(hs) == \A n \in hs : LET d == Decide27(n, hs, {}, {}) IN ~Replicates(d) /\ d.del = "none"
-NoTasks(hs) == \A n \in hs : ~Replicates(Decide27(n, hs, {}, {}))
- \* a check "replicates" when it hands the replicator a task with at least one candidate node. (With overlapping
-\* rules the code as found keeps calling the replicator with an EMPTY candidate list: a holder remembered from
-\* an earlier rule does not lower the shortage of a later rule - a phantom shortage that copies nothing.)
-Replicates(d) == \E k \in 1..Len(d.tasks) : Len(d.tasks[k].nodes) > 0
-Quiet(hs) == \A n \in hs : LET d == Decide27(n, hs, {}, {}) IN ~Replicates(d) /\ d.del = "none"
-NoTasks(hs) == \A n \in hs : ~Replicates(Decide27(n, hs, {}, {}))
- \* a check "replicates" when it hands the replicator a task with at least one candidate node. (With overlapping
-\* rules the code as found keeps calling the replicator with an EMPTY candidate list: a holder remembered from
-\* an earlier rule does not lower the shortage of a later rule - a phantom shortage that copies nothing.)
-Replicates(d) == \E k \in 1..Len(d.tasks) : Len(d.tasks[k].nodes) > 0
-Quiet(hs) == \A n \in hs : LET d == Decide27(n, hs, {}, {}) IN ~Replicates(d) /\ d.del = "none"
-NoTasks(hs) == \A n \in hs : ~Replicates(Decide27(n, hs, {}, {}))
- \* a check "replicates" when it hands the replicator a task with at least one candidate node. (With overlapping
-\* rules the code as found keeps calling the replicator with an EMPTY candidate list: a holder remembered from
-\* an earlier rule does not lower the shortage of a later rule - a phantom shortage that copies nothing.)
-Replicates(d) == \E k \in 1..Len(d.tasks) : Len(d.tasks[k].nodes) > 0
-Quiet(hs) == \A n \in hs : LET d == Decide27(n, hs, {}, {}) IN ~Replicates(d) /\ d.del = "none"
-NoTasks(hs) == \A n \in hs : ~Replicates(Decide27(n, hs, {}, {}))
- \* a check "replicates" when it hands the replicator a task with at least one candidate node. (With overlapping
-\* rules the code as found keeps calling the replicator with an EMPTY candidate list: a holder remembered from
-\* an earlier rule does not lower the shortage of a later rule - a phantom shortage that copies nothing.)
-Replicates(d) == \E k \in 1..Len(d.tasks) : Len(d.tasks[k].nodes) > 0
-Quiet(hs) == \A n \in hs : LET d == Decide27(n, hs, {}, {}) IN ~Replicates(d) /\ d.del = "none"
-NoTasks(hs) == \A n \in hs : ~Replicates(Decide27(n, hs, {}, {}))
- \* a check "replicates" when it hands the replicator a task with at least one candidate node. (With overlapping
-\* rules the code as found keeps calling the replicator with an EMPTY candidate list: a holder remembered from
-\* an earlier rule does not lower the shortage of a later rule - a phantom shortage that copies nothing.)
-Replicates(d) == \E k \in 1..Len(d.tasks) : Len(d.tasks[k].nodes) > 0
-Quiet(hs) == \A n \in hs : LET d == Decide27(n, hs, {}, {}) IN ~Replicates(d) /\ d.del = "none"
-NoTasks(hs) == \A n \in hs : ~Replicates(Decide27(n, hs, {}, {}))
- \* a check "replicates" when it hands the replicator a task with at least one candidate node. (With overlapping
-\* rules the code as found keeps calling the replicator with an EMPTY candidate list: a holder remembered from
-\* an earlier rule does not lower the shortage of a later rule - a phantom shortage that copies nothing.)
-Replicates(d) == \E k \in 1..Len(d.tasks) : Len(d.tasks[k].nodes) > 0
-Quiet(hs) == \A n \in hs : LET d == Decide27(n, hs, {}, {}) IN ~Replicates(d) /\ d.del = "none"
-NoTasks(hs) == \A n \in hs : ~Replicates(Decide27(n, hs, {}, {}))
- \* a check "replicates" when it hands the replicator a task with at least one candidate node. (With overlapping
-\* rules the code as found keeps calling the replicator with an EMPTY candidate list: a holder remembered from
-\* an earlier rule does not lower the shortage of a later rule - a phantom shortage that copies nothing.)
-Replicates(d) == \E k \in 1..Len(d.tasks) : Len(d.tasks[k].nodes) > 0
-Quiet(hs) == \A n \in hs : LET d == Decide27(n, hs, {}, {}) IN ~Replicates(d) /\ d.del = "none"
-NoTasks(hs) == \A n \in hs : ~Replicates(Decide27(n, hs, {}, {}))
- \* a check "replicates" when it hands the replicator a task with at least one candidate node. (With overlapping
-\* rules the code as found keeps calling the replicator with an EMPTY candidate list: a holder remembered from
-\* an earlier rule does not lower the shortage of a later rule - a phantom shortage that copies nothing.)
-Replicates(d) == \E k \in 1..Len(d.tasks) : Len(d.tasks[k].nodes) > 0
-Quiet(hs) == \A n \in hs : LET d == Decide27(n, hs, {}, {}) IN ~Replicates(d) /\ d.del = "none"
-NoTasks(hs) == \A n \in hs : ~Replicates(Decide27(n, hs, {}, {}))
- \* a check "replicates" when it hands the replicator a task with at least one candidate node. (With overlapping
-\* rules the code as found keeps calling the replicator with an EMPTY candidate list: a holder remembered from
-\* an earlier rule does not lower the shortage of a later rule - a phantom shortage that copies nothing.)
-Replicates(d) == \E k \in 1..Len(d.tasks) : Len(d.tasks[k].nodes) > 0
-Quiet(hs) == \A n \in hs : LET d == Decide27(n, hs, {}, {}) IN ~Replicates(d) /\ d.del = "none"
-NoTasks(hs) == \A n \in hs : ~Replicates(Decide27(n, hs, {}, {}))
- \* a check "replicates" when it hands the replicator a task with at least one candidate node. (With overlapping
-\* rules the code as found keeps calling the replicator with an EMPTY candidate list: a holder remembered from
-\* an earlier rule does not lower the shortage of a later rule - a phantom shortage that copies nothing.)
-Replicates(d) == \E k \in 1..Len(d.tasks) : Len(d.tasks[k].nodes) > 0
-Quiet(hs) == \A n \in hs : LET d == Decide27(n, hs, {}, {}) IN ~Replicates(d) /\ d.del = "none"
-NoTasks(hs) == \A n \in hs : ~Replicates(Decide27(n, hs, {}, {}))
- \* a check "replicates" when it hands the replicator a task with at least one candidate node. (With overlapping
-\* rules the code as found keeps calling the replicator with an EMPTY candidate list: a holder remembered from
-\* an earlier rule does not lower the shortage of a later rule - a phantom shortage that copies nothing.)
-Replicates(d) == \E k \in 1..Len(d.tasks) : Len(d.tasks[k].nodes) > 0
-Quiet(hs) == \A n \in hs : LET d == Decide27(n, hs, {}, {}) IN ~Replicates(d) /\ d.del = "none"
-NoTasks(hs) == \A n \in hs : ~Replicates(Decide27(n, hs, {}, {}))
- \* a check "replicates" when it hands the replicator a task with at least one candidate node. (With overlapping
-\* rules the code as found keeps calling the replicator with an EMPTY candidate list: a holder remembered from
-\* an earlier rule does not lower the shortage of a later rule - a phantom shortage that copies nothing.)
-Replicates(d) == \E k \in 1..Len(d.tasks) : Len(d.tasks[k].nodes) > 0
-Quiet(hs) == \A n \in hs : LET d == Decide27(n, hs, {}, {}) IN ~Replicates(d) /\ d.del = "none"
-NoTasks(hs) == \A n \in hs : ~Replicates(Decide27(n, hs, {}, {}))
- \* a check "replicates" when it hands the replicator a task with at least one candidate node. (With overlapping
-\* rules the code as found keeps calling the replicator with an EMPTY candidate list: a holder remembered from
-\* an earlier rule does not lower the shortage of a later rule - a phantom shortage that copies nothing.)
-Replicates(d) == \E k \in 1..Len(d.tasks) : Len(d.tasks[k].nodes) > 0
-Quiet(hs) == \A n \in hs : LET d == Decide27(n, hs, {}, {}) IN ~Replicates(d) /\ d.del = "none"
-NoTasks(hs) == \A n \in hs : ~Replicates(Decide27(n, hs, {}, {}))
- \* a check "replicates" when it hands the replicator a task with at least one candidate node. (With overlapping
-\* rules the code as found keeps calling the replicator with an EMPTY candidate list: a holder remembered from
-\* an earlier rule does not lower the shortage of a later rule - a phantom shortage that copies nothing.)
-Replicates(d) == \E k \in 1..Len(d.tasks) : Len(d.tasks[k].nodes) > 0
-Quiet(hs) == \A n \in hs : LET d == Decide27(n, hs, {}, {}) IN ~Replicates(d) /\ d.del = "none"
-NoTasks(hs) == \A n \in hs : ~Replicates(Decide27(n, hs, {}, {}))
- \* a check "replicates" when it hands the replicator a task with at least one candidate node. (With overlapping
-\* rules the code as found keeps calling the replicator with an EMPTY candidate list: a holder remembered from
-\* an earlier rule does not lower the shortage of a later rule - a phantom shortage that copies nothing.)
-Replicates(d) == \E k \in 1..Len(d.tasks) : Len(d.tasks[k].nodes) > 0
-Quiet(hs) == \A n \in hs : LET d == Decide27(n, hs, {}, {}) IN ~Replicates(d) /\ d.del = "none"
-NoTasks(hs) == \A n \in hs : ~Replicates(Decide27(n, hs, {}, {}))
-\\* a check "replicates" when it hands the replicator a task with at least one candidate node. (With overlapping
-\* rules the code as found keeps calling the replicator with an EMPTY candidate list: a holder remembered from
-\* an earlier rule does not lower the shortage of a later rule - a phantom shortage that copies nothing.)
-Replicates(d) == \E k \in 1..Len(d.tasks) : Len(d.tasks[k].nodes) > 0
-Quiet(hs) == \A n \in hs : LET d == Decide27(n, hs, {}, {}) IN ~Replicates(d) /\ d.del = "none"
-NoTasks(hs) == \A n \in hs : ~Replicates(Decide27(n, hs, {}, {}))
-*\* a check "replicates" when it hands the replicator a task with at least one candidate node. (With overlapping
-\* rules the code as found keeps calling the replicator with an EMPTY candidate list: a holder remembered from
-\* an earlier rule does not lower the shortage of a later rule - a phantom shortage that copies nothing.)
-Replicates(d) == \E k \in 1..Len(d.tasks) : Len(d.tasks[k].nodes) > 0
-Quiet(hs) == \A n \in hs : LET d == Decide27(n, hs, {}, {}) IN ~Replicates(d) /\ d.del = "none"
-NoTasks(hs) == \A n \in hs : ~Replicates(Decide27(n, hs, {}, {}))
- \* a check "replicates" when it hands the replicator a task with at least one candidate node. (With overlapping
-\* rules the code as found keeps calling the replicator with an EMPTY candidate list: a holder remembered from
-\* an earlier rule does not lower the shortage of a later rule - a phantom shortage that copies nothing.)
-Replicates(d) == \E k \in 1..Len(d.tasks) : Len(d.tasks[k].nodes) > 0
-Quiet(hs) == \A n \in hs : LET d == Decide27(n, hs, {}, {}) IN ~Replicates(d) /\ d.del = "none"
-NoTasks(hs) == \A n \in hs : ~Replicates(Decide27(n, hs, {}, {}))
-(\* a check "replicates" when it hands the replicator a task with at least one candidate node. (With overlapping
-\* rules the code as found keeps calling the replicator with an EMPTY candidate list: a holder remembered from
-\* an earlier rule does not lower the shortage of a later rule - a phantom shortage that copies nothing.)
-Replicates(d) == \E k \in 1..Len(d.tasks) : Len(d.tasks[k].nodes) > 0
-Quiet(hs) == \A n \in hs : LET d == Decide27(n, hs, {}, {}) IN ~Replicates(d) /\ d.del = "none"
-NoTasks(hs) == \A n \in hs : ~Replicates(Decide27(n, hs, {}, {}))
-b\* a check "replicates" when it hands the replicator a task with at least one candidate node. (With overlapping
-\* rules the code as found keeps calling the replicator with an EMPTY candidate list: a holder remembered from
-\* an earlier rule does not lower the shortage of a later rule - a phantom shortage that copies nothing.)
-Replicates(d) == \E k \in 1..Len(d.tasks) : Len(d.tasks[k].nodes) > 0
-Quiet(hs) == \A n \in hs : LET d == Decide27(n, hs, {}, {}) IN ~Replicates(d) /\ d.del = "none"
-NoTasks(hs) == \A n \in hs : ~Replicates(Decide27(n, hs, {}, {}))
-o\* a check "replicates" when it hands the replicator a task with at least one candidate node. (With overlapping
-\* rules the code as found keeps calling the replicator with an EMPTY candidate list: a holder remembered from
-\* an earlier rule does not lower the shortage of a later rule - a phantom shortage that copies nothing.)
-Replicates(d) == \E k \in 1..Len(d.tasks) : Len(d.tasks[k].nodes) > 0
-Quiet(hs) == \A n \in hs : LET d == Decide27(n, hs, {}, {}) IN ~Replicates(d) /\ d.del = "none"
-NoTasks(hs) == \A n \in hs : ~Replicates(Decide27(n, hs, {}, {}))
-u\* a check "replicates" when it hands the replicator a task with at least one candidate node. (With overlapping
-\* rules the code as found keeps calling the replicator with an EMPTY candidate list: a holder remembered from
-\* an earlier rule does not lower the shortage of a later rule - a phantom shortage that copies nothing.)
-Replicates(d) == \E k \in 1..Len(d.tasks) : Len(d.tasks[k].nodes) > 0
-Quiet(hs) == \A n \in hs : LET d == Decide27(n, hs, {}, {}) IN ~Replicates(d) /\ d.del = "none"
-NoTasks(hs) == \A n \in hs : ~Replicates(Decide27(n, hs, {}, {}))
-n\* a check "replicates" when it hands the replicator a task with at least one candidate node. (With overlapping
-\* rules the code as found keeps calling the replicator with an EMPTY candidate list: a holder remembered from
-\* an earlier rule does not lower the shortage of a later rule - a phantom shortage that copies nothing.)
-Replicates(d) == \E k \in 1..Len(d.tasks) : Len(d.tasks[k].nodes) > 0
-Quiet(hs) == \A n \in hs : LET d == Decide27(n, hs, {}, {}) IN ~Replicates(d) /\ d.del = "none"
-NoTasks(hs) == \A n \in hs : ~Replicates(Decide27(n, hs, {}, {}))
-d\* a check "replicates" when it hands the replicator a task with at least one candidate node. (With overlapping
-\* rules the code as found keeps calling the replicator with an EMPTY candidate list: a holder remembered from
-\* an earlier rule does not lower the shortage of a later rule - a phantom shortage that copies nothing.)
-Replicates(d) == \E k \in 1..Len(d.tasks) : Len(d.tasks[k].nodes) > 0
-Quiet(hs) == \A n \in hs : LET d == Decide27(n, hs, {}, {}) IN ~Replicates(d) /\ d.del = "none"
-NoTasks(hs) == \A n \in hs : ~Replicates(Decide27(n, hs, {}, {}))
-s\* a check "replicates" when it hands the replicator a task with at least one candidate node. (With overlapping
-\* rules the code as found keeps calling the replicator with an EMPTY candidate list: a holder remembered from
-\* an earlier rule does not lower the shortage of a later rule - a phantom shortage that copies nothing.)
-Replicates(d) == \E k \in 1..Len(d.tasks) : Len(d.tasks[k].nodes) > 0
-Quiet(hs) == \A n \in hs : LET d == Decide27(n, hs, {}, {}) IN ~Replicates(d) /\ d.del = "none"
-NoTasks(hs) == \A n \in hs : ~Replicates(Decide27(n, hs, {}, {}))
- \* a check "replicates" when it hands the replicator a task with at least one candidate node. (With overlapping
-\* rules the code as found keeps calling the replicator with an EMPTY candidate list: a holder remembered from
-\* an earlier rule does not lower the shortage of a later rule - a phantom shortage that copies nothing.)
-Replicates(d) == \E k \in 1..Len(d.tasks) : Len(d.tasks[k].nodes) > 0
-Quiet(hs) == \A n \in hs : LET d == Decide27(n, hs, {}, {}) IN ~Replicates(d) /\ d.del = "none"
-NoTasks(hs) == \A n \in hs : ~Replicates(Decide27(n, hs, {}, {}))
-t\* a check "replicates" when it hands the replicator a task with at least one candidate node. (With overlapping
-\* rules the code as found keeps calling the replicator with an EMPTY candidate list: a holder remembered from
-\* an earlier rule does not lower the shortage of a later rule - a phantom shortage that copies nothing.)
-Replicates(d) == \E k \in 1..Len(d.tasks) : Len(d.tasks[k].nodes) > 0
-Quiet(hs) == \A n \in hs : LET d == Decide27(n, hs, {}, {}) IN ~Replicates(d) /\ d.del = "none"
-NoTasks(hs) == \A n \in hs : ~Replicates(Decide27(n, hs, {}, {}))
-h\* a check "replicates" when it hands the replicator a task with at least one candidate node. (With overlapping
-\* rules the code as found keeps calling the replicator with an EMPTY candidate list: a holder remembered from
-\* an earlier rule does not lower the shortage of a later rule - a phantom shortage that copies nothing.)
-Replicates(d) == \E k \in 1..Len(d.tasks) : Len(d.tasks[k].nodes) > 0
-Quiet(hs) == \A n \in hs : LET d == Decide27(n, hs, {}, {}) IN ~Replicates(d) /\ d.del = "none"
-NoTasks(hs) == \A n \in hs : ~Replicates(Decide27(n, hs, {}, {}))
-e\* a check "replicates" when it hands the replicator a task with at least one candidate node. (With overlapping
-\* rules the code as found keeps calling the replicator with an EMPTY candidate list: a holder remembered from
-\* an earlier rule does not lower the shortage of a later rule - a phantom shortage that copies nothing.)
-Replicates(d) == \E k \in 1..Len(d.tasks) : Len(d.tasks[k].nodes) > 0
-Quiet(hs) == \A n \in hs : LET d == Decide27(n, hs, {}, {}) IN ~Replicates(d) /\ d.del = "none"
-NoTasks(hs) == \A n \in hs : ~Replicates(Decide27(n, hs, {}, {}))
- \* a check "replicates" when it hands the replicator a task with at least one candidate node. (With overlapping
-\* rules the code as found keeps calling the replicator with an EMPTY candidate list: a holder remembered from
-\* an earlier rule does not lower the shortage of a later rule - a phantom shortage that copies nothing.)
-Replicates(d) == \E k \in 1..Len(d.tasks) : Len(d.tasks[k].nodes) > 0
-Quiet(hs) == \A n \in hs : LET d == Decide27(n, hs, {}, {}) IN ~Replicates(d) /\ d.del = "none"
-NoTasks(hs) == \A n \in hs : ~Replicates(Decide27(n, hs, {}, {}))
-c\* a check "replicates" when it hands the replicator a task with at least one candidate node. (With overlapping
-\* rules the code as found keeps calling the replicator with an EMPTY candidate list: a holder remembered from
-\* an earlier rule does not lower the shortage of a later rule - a phantom shortage that copies nothing.)
-Replicates(d) == \E k \in 1..Len(d.tasks) : Len(d.tasks[k].nodes) > 0
-Quiet(hs) == \A n \in hs : LET d == Decide27(n, hs, {}, {}) IN ~Replicates(d) /\ d.del = "none"
-NoTasks(hs) == \A n \in hs : ~Replicates(Decide27(n, hs, {}, {}))
-o\* a check "replicates" when it hands the replicator a task with at least one candidate node. (With overlapping
-\* rules the code as found keeps calling the replicator with an EMPTY candidate list: a holder remembered from
-\* an earlier rule does not lower the shortage of a later rule - a phantom shortage that copies nothing.)
-Replicates(d) == \E k \in 1..Len(d.tasks) : Len(d.tasks[k].nodes) > 0
-Quiet(hs) == \A n \in hs : LET d == Decide27(n, hs, {}, {}) IN ~Replicates(d) /\ d.del = "none"
-NoTasks(hs) == \A n \in hs : ~Replicates(Decide27(n, hs, {}, {}))
-u\* a check "replicates" when it hands the replicator a task with at least one candidate node. (With overlapping
-\* rules the code as found keeps calling the replicator with an EMPTY candidate list: a holder remembered from
-\* an earlier rule does not lower the shortage of a later rule - a phantom shortage that copies nothing.)
-Replicates(d) == \E k \in 1..Len(d.tasks) : Len(d.tasks[k].nodes) > 0
-Quiet(hs) == \A n \in hs : LET d == Decide27(n, hs, {}, {}) IN ~Replicates(d) /\ d.del = "none"
-NoTasks(hs) == \A n \in hs : ~Replicates(Decide27(n, hs, {}, {}))
-n\* a check "replicates" when it hands the replicator a task with at least one candidate node. (With overlapping
-\* rules the code as found keeps calling the replicator with an EMPTY candidate list: a holder remembered from
-\* an earlier rule does not lower the shortage of a later rule - a phantom shortage that copies nothing.)
-Replicates(d) == \E k \in 1..Len(d.tasks) : Len(d.tasks[k].nodes) > 0
-Quiet(hs) == \A n \in hs : LET d == Decide27(n, hs, {}, {}) IN ~Replicates(d) /\ d.del = "none"
-NoTasks(hs) == \A n \in hs : ~Replicates(Decide27(n, hs, {}, {}))
-t\* a check "replicates" when it hands the replicator a task with at least one candidate node. (With overlapping
-\* rules the code as found keeps calling the replicator with an EMPTY candidate list: a holder remembered from
-\* an earlier rule does not lower the shortage of a later rule - a phantom shortage that copies nothing.)
-Replicates(d) == \E k \in 1..Len(d.tasks) : Len(d.tasks[k].nodes) > 0
-Quiet(hs) == \A n \in hs : LET d == Decide27(n, hs, {}, {}) IN ~Replicates(d) /\ d.del = "none"
-NoTasks(hs) == \A n \in hs : ~Replicates(Decide27(n, hs, {}, {}))
-e\* a check "replicates" when it hands the replicator a task with at least one candidate node. (With overlapping
-\* rules the code as found keeps calling the replicator with an EMPTY candidate list: a holder remembered from
-\* an earlier rule does not lower the shortage of a later rule - a phantom shortage that copies nothing.)
-Replicates(d) == \E k \in 1..Len(d.tasks) : Len(d.tasks[k].nodes) > 0
-Quiet(hs) == \A n \in hs : LET d == Decide27(n, hs, {}, {}) IN ~Replicates(d) /\ d.del = "none"
-NoTasks(hs) == \A n \in hs : ~Replicates(Decide27(n, hs, {}, {}))
-r\* a check "replicates" when it hands the replicator a task with at least one candidate node. (With overlapping
-\* rules the code as found keeps calling the replicator with an EMPTY candidate list: a holder remembered from
-\* an earlier rule does not lower the shortage of a later rule - a phantom shortage that copies nothing.)
-Replicates(d) == \E k \in 1..Len(d.tasks) : Len(d.tasks[k].nodes) > 0
-Quiet(hs) == \A n \in hs : LET d == Decide27(n, hs, {}, {}) IN ~Replicates(d) /\ d.del = "none"
-NoTasks(hs) == \A n \in hs : ~Replicates(Decide27(n, hs, {}, {}))
-;\* a check "replicates" when it hands the replicator a task with at least one candidate node. (With overlapping
-\* rules the code as found keeps calling the replicator with an EMPTY candidate list: a holder remembered from
-\* an earlier rule does not lower the shortage of a later rule - a phantom shortage that copies nothing.)
-Replicates(d) == \E k \in 1..Len(d.tasks) : Len(d.tasks[k].nodes) > 0
-Quiet(hs) == \A n \in hs : LET d == Decide27(n, hs, {}, {}) IN ~Replicates(d) /\ d.del = "none"
-NoTasks(hs) == \A n \in hs : ~Replicates(Decide27(n, hs, {}, {}))
- \* a check "replicates" when it hands the replicator a task with at least one candidate node. (With overlapping
-\* rules the code as found keeps calling the replicator with an EMPTY candidate list: a holder remembered from
-\* an earlier rule does not lower the shortage of a later rule - a phantom shortage that copies nothing.)
-Replicates(d) == \E k \in 1..Len(d.tasks) : Len(d.tasks[k].nodes) > 0
-Quiet(hs) == \A n \in hs : LET d == Decide27(n, hs, {}, {}) IN ~Replicates(d) /\ d.del = "none"
-NoTasks(hs) == \A n \in hs : ~Replicates(Decide27(n, hs, {}, {}))
-o\* a check "replicates" when it hands the replicator a task with at least one candidate node. (With overlapping
-\* rules the code as found keeps calling the replicator with an EMPTY candidate list: a holder remembered from
-\* an earlier rule does not lower the shortage of a later rule - a phantom shortage that copies nothing.)
-Replicates(d) == \E k \in 1..Len(d.tasks) : Len(d.tasks[k].nodes) > 0
-Quiet(hs) == \A n \in hs : LET d == Decide27(n, hs, {}, {}) IN ~Replicates(d) /\ d.del = "none"
-NoTasks(hs) == \A n \in hs : ~Replicates(Decide27(n, hs, {}, {}))
-n\* a check "replicates" when it hands the replicator a task with at least one candidate node. (With overlapping
-\* rules the code as found keeps calling the replicator with an EMPTY candidate list: a holder remembered from
-\* an earlier rule does not lower the shortage of a later rule - a phantom shortage that copies nothing.)
-Replicates(d) == \E k \in 1..Len(d.tasks) : Len(d.tasks[k].nodes) > 0
-Quiet(hs) == \A n \in hs : LET d == Decide27(n, hs, {}, {}) IN ~Replicates(d) /\ d.del = "none"
-NoTasks(hs) == \A n \in hs : ~Replicates(Decide27(n, hs, {}, {}))
-e\* a check "replicates" when it hands the replicator a task with at least one candidate node. (With overlapping
-\* rules the code as found keeps calling the replicator with an EMPTY candidate list: a holder remembered from
-\* an earlier rule does not lower the shortage of a later rule - a phantom shortage that copies nothing.)
-Replicates(d) == \E k \in 1..Len(d.tasks) : Len(d.tasks[k].nodes) > 0
-Quiet(hs) == \A n \in hs : LET d == Decide27(n, hs, {}, {}) IN ~Replicates(d) /\ d.del = "none"
-NoTasks(hs) == \A n \in hs : ~Replicates(Decide27(n, hs, {}, {}))
- \* a check "replicates" when it hands the replicator a task with at least one candidate node. (With overlapping
-\* rules the code as found keeps calling the replicator with an EMPTY candidate list: a holder remembered from
-\* an earlier rule does not lower the shortage of a later rule - a phantom shortage that copies nothing.)
-Replicates(d) == \E k \in 1..Len(d.tasks) : Len(d.tasks[k].nodes) > 0
-Quiet(hs) == \A n \in hs : LET d == Decide27(n, hs, {}, {}) IN ~Replicates(d) /\ d.del = "none"
-NoTasks(hs) == \A n \in hs : ~Replicates(Decide27(n, hs, {}, {}))
-m\* a check "replicates" when it hands the replicator a task with at least one candidate node. (With overlapping
-\* rules the code as found keeps calling the replicator with an EMPTY candidate list: a holder remembered from
-\* an earlier rule does not lower the shortage of a later rule - a phantom shortage that copies nothing.)
-Replicates(d) == \E k \in 1..Len(d.tasks) : Len(d.tasks[k].nodes) > 0
-Quiet(hs) == \A n \in hs : LET d == Decide27(n, hs, {}, {}) IN ~Replicates(d) /\ d.del = "none"
-NoTasks(hs) == \A n \in hs : ~Replicates(Decide27(n, hs, {}, {}))
-o\* a check "replicates" when it hands the replicator a task with at least one candidate node. (With overlapping
-\* rules the code as found keeps calling the replicator with an EMPTY candidate list: a holder remembered from
-\* an earlier rule does not lower the shortage of a later rule - a phantom shortage that copies nothing.)
-Replicates(d) == \E k \in 1..Len(d.tasks) : Len(d.tasks[k].nodes) > 0
-Quiet(hs) == \A n \in hs : LET d == Decide27(n, hs, {}, {}) IN ~Replicates(d) /\ d.del = "none"
-NoTasks(hs) == \A n \in hs : ~Replicates(Decide27(n, hs, {}, {}))
-r\* a check "replicates" when it hands the replicator a task with at least one candidate node. (With overlapping
-\* rules the code as found keeps calling the replicator with an EMPTY candidate list: a holder remembered from
-\* an earlier rule does not lower the shortage of a later rule - a phantom shortage that copies nothing.)
-Replicates(d) == \E k \in 1..Len(d.tasks) : Len(d.tasks[k].nodes) > 0
-Quiet(hs) == \A n \in hs : LET d == Decide27(n, hs, {}, {}) IN ~Replicates(d) /\ d.del = "none"
-NoTasks(hs) == \A n \in hs : ~Replicates(Decide27(n, hs, {}, {}))
-e\* a check "replicates" when it hands the replicator a task with at least one candidate node. (With overlapping
-\* rules the code as found keeps calling the replicator with an EMPTY candidate list: a holder remembered from
-\* an earlier rule does not lower the shortage of a later rule - a phantom shortage that copies nothing.)
-Replicates(d) == \E k \in 1..Len(d.tasks) : Len(d.tasks[k].nodes) > 0
-Quiet(hs) == \A n \in hs : LET d == Decide27(n, hs, {}, {}) IN ~Replicates(d) /\ d.del = "none"
-NoTasks(hs) == \A n \in hs : ~Replicates(Decide27(n, hs, {}, {}))
- \* a check "replicates" when it hands the replicator a task with at least one candidate node. (With overlapping
-\* rules the code as found keeps calling the replicator with an EMPTY candidate list: a holder remembered from
-\* an earlier rule does not lower the shortage of a later rule - a phantom shortage that copies nothing.)
-Replicates(d) == \E k \in 1..Len(d.tasks) : Len(d.tasks[k].nodes) > 0
-Quiet(hs) == \A n \in hs : LET d == Decide27(n, hs, {}, {}) IN ~Replicates(d) /\ d.del = "none"
-NoTasks(hs) == \A n \in hs : ~Replicates(Decide27(n, hs, {}, {}))
-r\* a check "replicates" when it hands the replicator a task with at least one candidate node. (With overlapping
-\* rules the code as found keeps calling the replicator with an EMPTY candidate list: a holder remembered from
-\* an earlier rule does not lower the shortage of a later rule - a phantom shortage that copies nothing.)
-Replicates(d) == \E k \in 1..Len(d.tasks) : Len(d.tasks[k].nodes) > 0
-Quiet(hs) == \A n \in hs : LET d == Decide27(n, hs, {}, {}) IN ~Replicates(d) /\ d.del = "none"
-NoTasks(hs) == \A n \in hs : ~Replicates(Decide27(n, hs, {}, {}))
-o\* a check "replicates" when it hands the replicator a task with at least one candidate node. (With overlapping
-\* rules the code as found keeps calling the replicator with an EMPTY candidate list: a holder remembered from
-\* an earlier rule does not lower the shortage of a later rule - a phantom shortage that copies nothing.)
-Replicates(d) == \E k \in 1..Len(d.tasks) : Len(d.tasks[k].nodes) > 0
-Quiet(hs) == \A n \in hs : LET d == Decide27(n, hs, {}, {}) IN ~Replicates(d) /\ d.del = "none"
-NoTasks(hs) == \A n \in hs : ~Replicates(Decide27(n, hs, {}, {}))
-u\* a check "replicates" when it hands the replicator a task with at least one candidate node. (With overlapping
-\* rules the code as found keeps calling the replicator with an EMPTY candidate list: a holder remembered from
-\* an earlier rule does not lower the shortage of a later rule - a phantom shortage that copies nothing.)
-Replicates(d) == \E k \in 1..Len(d.tasks) : Len(d.tasks[k].nodes) > 0
-Quiet(hs) == \A n \in hs : LET d == Decide27(n, hs, {}, {}) IN ~Replicates(d) /\ d.del = "none"
-NoTasks(hs) == \A n \in hs : ~Replicates(Decide27(n, hs, {}, {}))
-n\* a check "replicates" when it hands the replicator a task with at least one candidate node. (With overlapping
-\* rules the code as found keeps calling the replicator with an EMPTY candidate list: a holder remembered from
-\* an earlier rule does not lower the shortage of a later rule - a phantom shortage that copies nothing.)
-Replicates(d) == \E k \in 1..Len(d.tasks) : Len(d.tasks[k].nodes) > 0
-Quiet(hs) == \A n \in hs : LET d == Decide27(n, hs, {}, {}) IN ~Replicates(d) /\ d.del = "none"
-NoTasks(hs) == \A n \in hs : ~Replicates(Decide27(n, hs, {}, {}))
-d\* a check "replicates" when it hands the replicator a task with at least one candidate node. (With overlapping
-\* rules the code as found keeps calling the replicator with an EMPTY candidate list: a holder remembered from
-\* an earlier rule does not lower the shortage of a later rule - a phantom shortage that copies nothing.)
-Replicates(d) == \E k \in 1..Len(d.tasks) : Len(d.tasks[k].nodes) > 0
-Quiet(hs) == \A n \in hs : LET d == Decide27(n, hs, {}, {}) IN ~Replicates(d) /\ d.del = "none"
-NoTasks(hs) == \A n \in hs : ~Replicates(Decide27(n, hs, {}, {}))
- \* a check "replicates" when it hands the replicator a task with at least one candidate node. (With overlapping
-\* rules the code as found keeps calling the replicator with an EMPTY candidate list: a holder remembered from
-\* an earlier rule does not lower the shortage of a later rule - a phantom shortage that copies nothing.)
-Replicates(d) == \E k \in 1..Len(d.tasks) : Len(d.tasks[k].nodes) > 0
-Quiet(hs) == \A n \in hs : LET d == Decide27(n, hs, {}, {}) IN ~Replicates(d) /\ d.del = "none"
-NoTasks(hs) == \A n \in hs : ~Replicates(Decide27(n, hs, {}, {}))
-i\* a check "replicates" when it hands the replicator a task with at least one candidate node. (With overlapping
-\* rules the code as found keeps calling the replicator with an EMPTY candidate list: a holder remembered from
-\* an earlier rule does not lower the shortage of a later rule - a phantom shortage that copies nothing.)
-Replicates(d) == \E k \in 1..Len(d.tasks) : Len(d.tasks[k].nodes) > 0
-Quiet(hs) == \A n \in hs : LET d == Decide27(n, hs, {}, {}) IN ~Replicates(d) /\ d.del = "none"
-NoTasks(hs) == \A n \in hs : ~Replicates(Decide27(n, hs, {}, {}))
-s\* a check "replicates" when it hands the replicator a task with at least one candidate node. (With overlapping
-\* rules the code as found keeps calling the replicator with an EMPTY candidate list: a holder remembered from
-\* an earlier rule does not lower the shortage of a later rule - a phantom shortage that copies nothing.)
-Replicates(d) == \E k \in 1..Len(d.tasks) : Len(d.tasks[k].nodes) > 0
-Quiet(hs) == \A n \in hs : LET d == Decide27(n, hs, {}, {}) IN ~Replicates(d) /\ d.del = "none"
-NoTasks(hs) == \A n \in hs : ~Replicates(Decide27(n, hs, {}, {}))
- \* a check "replicates" when it hands the replicator a task with at least one candidate node. (With overlapping
-\* rules the code as found keeps calling the replicator with an EMPTY candidate list: a holder remembered from
-\* an earlier rule does not lower the shortage of a later rule - a phantom shortage that copies nothing.)
-Replicates(d) == \E k \in 1..Len(d.tasks) : Len(d.tasks[k].nodes) > 0
-Quiet(hs) == \A n \in hs : LET d == Decide27(n, hs, {}, {}) IN ~Replicates(d) /\ d.del = "none"
-NoTasks(hs) == \A n \in hs : ~Replicates(Decide27(n, hs, {}, {}))
-w\* a check "replicates" when it hands the replicator a task with at least one candidate node. (With overlapping
-\* rules the code as found keeps calling the replicator with an EMPTY candidate list: a holder remembered from
-\* an earlier rule does not lower the shortage of a later rule - a phantom shortage that copies nothing.)
-Replicates(d) == \E k \in 1..Len(d.tasks) : Len(d.tasks[k].nodes) > 0
-Quiet(hs) == \A n \in hs : LET d == Decide27(n, hs, {}, {}) IN ~Replicates(d) /\ d.del = "none"
-NoTasks(hs) == \A n \in hs : ~Replicates(Decide27(n, hs, {}, {}))
-a\* a check "replicates" when it hands the replicator a task with at least one candidate node. (With overlapping
-\* rules the code as found keeps calling the replicator with an EMPTY candidate list: a holder remembered from
-\* an earlier rule does not lower the shortage of a later rule - a phantom shortage that copies nothing.)
-Replicates(d) == \E k \in 1..Len(d.tasks) : Len(d.tasks[k].nodes) > 0
-Quiet(hs) == \A n \in hs : LET d == Decide27(n, hs, {}, {}) IN ~Replicates(d) /\ d.del = "none"
-NoTasks(hs) == \A n \in hs : ~Replicates(Decide27(n, hs, {}, {}))
-t\* a check "replicates" when it hands the replicator a task with at least one candidate node. (With overlapping
-\* rules the code as found keeps calling the replicator with an EMPTY candidate list: a holder remembered from
-\* an earlier rule does not lower the shortage of a later rule - a phantom shortage that copies nothing.)
-Replicates(d) == \E k \in 1..Len(d.tasks) : Len(d.tasks[k].nodes) > 0
-Quiet(hs) == \A n \in hs : LET d == Decide27(n, hs, {}, {}) IN ~Replicates(d) /\ d.del = "none"
-NoTasks(hs) == \A n \in hs : ~Replicates(Decide27(n, hs, {}, {}))
-c\* a check "replicates" when it hands the replicator a task with at least one candidate node. (With overlapping
-\* rules the code as found keeps calling the replicator with an EMPTY candidate list: a holder remembered from
-\* an earlier rule does not lower the shortage of a later rule - a phantom shortage that copies nothing.)
-Replicates(d) == \E k \in 1..Len(d.tasks) : Len(d.tasks[k].nodes) > 0
-Quiet(hs) == \A n \in hs : LET d == Decide27(n, hs, {}, {}) IN ~Replicates(d) /\ d.del = "none"
-NoTasks(hs) == \A n \in hs : ~Replicates(Decide27(n, hs, {}, {}))
-h\* a check "replicates" when it hands the replicator a task with at least one candidate node. (With overlapping
-\* rules the code as found keeps calling the replicator with an EMPTY candidate list: a holder remembered from
-\* an earlier rule does not lower the shortage of a later rule - a phantom shortage that copies nothing.)
-Replicates(d) == \E k \in 1..Len(d.tasks) : Len(d.tasks[k].nodes) > 0
-Quiet(hs) == \A n \in hs : LET d == Decide27(n, hs, {}, {}) IN ~Replicates(d) /\ d.del = "none"
-NoTasks(hs) == \A n \in hs : ~Replicates(Decide27(n, hs, {}, {}))
-e\* a check "replicates" when it hands the replicator a task with at least one candidate node. (With overlapping
-\* rules the code as found keeps calling the replicator with an EMPTY candidate list: a holder remembered from
-\* an earlier rule does not lower the shortage of a later rule - a phantom shortage that copies nothing.)
-Replicates(d) == \E k \in 1..Len(d.tasks) : Len(d.tasks[k].nodes) > 0
-Quiet(hs) == \A n \in hs : LET d == Decide27(n, hs, {}, {}) IN ~Replicates(d) /\ d.del = "none"
-NoTasks(hs) == \A n \in hs : ~Replicates(Decide27(n, hs, {}, {}))
-d\* a check "replicates" when it hands the replicator a task with at least one candidate node. (With overlapping
-\* rules the code as found keeps calling the replicator with an EMPTY candidate list: a holder remembered from
-\* an earlier rule does not lower the shortage of a later rule - a phantom shortage that copies nothing.)
-Replicates(d) == \E k \in 1..Len(d.tasks) : Len(d.tasks[k].nodes) > 0
-Quiet(hs) == \A n \in hs : LET d == Decide27(n, hs, {}, {}) IN ~Replicates(d) /\ d.del = "none"
-NoTasks(hs) == \A n \in hs : ~Replicates(Decide27(n, hs, {}, {}))
-)\* a check "replicates" when it hands the replicator a task with at least one candidate node. (With overlapping
-\* rules the code as found keeps calling the replicator with an EMPTY candidate list: a holder remembered from
-\* an earlier rule does not lower the shortage of a later rule - a phantom shortage that copies nothing.)
-Replicates(d) == \E k \in 1..Len(d.tasks) : Len(d.tasks[k].nodes) > 0
-Quiet(hs) == \A n \in hs : LET d == Decide27(n, hs, {}, {}) IN ~Replicates(d) /\ d.del = "none"
-NoTasks(hs) == \A n \in hs : ~Replicates(Decide27(n, hs, {}, {}))
-
-\* a check "replicates" when it hands the replicator a task with at least one candidate node. (With overlapping
-\* rules the code as found keeps calling the replicator with an EMPTY candidate list: a holder remembered from
-\* an earlier rule does not lower the shortage of a later rule - a phantom shortage that copies nothing.)
-Replicates(d) == \E k \in 1..Len(d.tasks) : Len(d.tasks[k].nodes) > 0
-Quiet(hs) == \A n \in hs : LET d == Decide27(n, hs, {}, {}) IN ~Replicates(d) /\ d.del = "none"
-NoTasks(hs) == \A n \in hs : ~Replicates(Decide27(n, hs, {}, {}))
- \* a check "replicates" when it hands the replicator a task with at least one candidate node. (With overlapping
-\* rules the code as found keeps calling the replicator with an EMPTY candidate list: a holder remembered from
-\* an earlier rule does not lower the shortage of a later rule - a phantom shortage that copies nothing.)
-Replicates(d) == \E k \in 1..Len(d.tasks) : Len(d.tasks[k].nodes) > 0
-Quiet(hs) == \A n \in hs : LET d == Decide27(n, hs, {}, {}) IN ~Replicates(d) /\ d.del = "none"
-NoTasks(hs) == \A n \in hs : ~Replicates(Decide27(n, hs, {}, {}))
- \* a check "replicates" when it hands the replicator a task with at least one candidate node. (With overlapping
-\* rules the code as found keeps calling the replicator with an EMPTY candidate list: a holder remembered from
-\* an earlier rule does not lower the shortage of a later rule - a phantom shortage that copies nothing.)
-Replicates(d) == \E k \in 1..Len(d.tasks) : Len(d.tasks[k].nodes) > 0
-Quiet(hs) == \A n \in hs : LET d == Decide27(n, hs, {}, {}) IN ~Replicates(d) /\ d.del = "none"
-NoTasks(hs) == \A n \in hs : ~Replicates(Decide27(n, hs, {}, {}))
- \* a check "replicates" when it hands the replicator a task with at least one candidate node. (With overlapping
-\* rules the code as found keeps calling the replicator with an EMPTY candidate list: a holder remembered from
-\* an earlier rule does not lower the shortage of a later rule - a phantom shortage that copies nothing.)
-Replicates(d) == \E k \in 1..Len(d.tasks) : Len(d.tasks[k].nodes) > 0
-Quiet(hs) == \A n \in hs : LET d == Decide27(n, hs, {}, {}) IN ~Replicates(d) /\ d.del = "none"
-NoTasks(hs) == \A n \in hs : ~Replicates(Decide27(n, hs, {}, {}))
- \* a check "replicates" when it hands the replicator a task with at least one candidate node. (With overlapping
-\* rules the code as found keeps calling the replicator with an EMPTY candidate list: a holder remembered from
-\* an earlier rule does not lower the shortage of a later rule - a phantom shortage that copies nothing.)
-Replicates(d) == \E k \in 1..Len(d.tasks) : Len(d.tasks[k].nodes) > 0
-Quiet(hs) == \A n \in hs : LET d == Decide27(n, hs, {}, {}) IN ~Replicates(d) /\ d.del = "none"
-NoTasks(hs) == \A n \in hs : ~Replicates(Decide27(n, hs, {}, {}))
- \* a check "replicates" when it hands the replicator a task with at least one candidate node. (With overlapping
-\* rules the code as found keeps calling the replicator with an EMPTY candidate list: a holder remembered from
-\* an earlier rule does not lower the shortage of a later rule - a phantom shortage that copies nothing.)
-Replicates(d) == \E k \in 1..Len(d.tasks) : Len(d.tasks[k].nodes) > 0
-Quiet(hs) == \A n \in hs : LET d == Decide27(n, hs, {}, {}) IN ~Replicates(d) /\ d.del = "none"
-NoTasks(hs) == \A n \in hs : ~Replicates(Decide27(n, hs, {}, {}))
- \* a check "replicates" when it hands the replicator a task with at least one candidate node. (With overlapping
-\* rules the code as found keeps calling the replicator with an EMPTY candidate list: a holder remembered from
-\* an earlier rule does not lower the shortage of a later rule - a phantom shortage that copies nothing.)
-Replicates(d) == \E k \in 1..Len(d.tasks) : Len(d.tasks[k].nodes) > 0
-Quiet(hs) == \A n \in hs : LET d == Decide27(n, hs, {}, {}) IN ~Replicates(d) /\ d.del = "none"
-NoTasks(hs) == \A n \in hs : ~Replicates(Decide27(n, hs, {}, {}))
- \* a check "replicates" when it hands the replicator a task with at least one candidate node. (With overlapping
-\* rules the code as found keeps calling the replicator with an EMPTY candidate list: a holder remembered from
-\* an earlier rule does not lower the shortage of a later rule - a phantom shortage that copies nothing.)
-Replicates(d) == \E k \in 1..Len(d.tasks) : Len(d.tasks[k].nodes) > 0
-Quiet(hs) == \A n \in hs : LET d == Decide27(n, hs, {}, {}) IN ~Replicates(d) /\ d.del = "none"
-NoTasks(hs) == \A n \in hs : ~Replicates(Decide27(n, hs, {}, {}))
- \* a check "replicates" when it hands the replicator a task with at least one candidate node. (With overlapping
-\* rules the code as found keeps calling the replicator with an EMPTY candidate list: a holder remembered from
-\* an earlier rule does not lower the shortage of a later rule - a phantom shortage that copies nothing.)
-Replicates(d) == \E k \in 1..Len(d.tasks) : Len(d.tasks[k].nodes) > 0
-Quiet(hs) == \A n \in hs : LET d == Decide27(n, hs, {}, {}) IN ~Replicates(d) /\ d.del = "none"
-NoTasks(hs) == \A n \in hs : ~Replicates(Decide27(n, hs, {}, {}))
- \* a check "replicates" when it hands the replicator a task with at least one candidate node. (With overlapping
-\* rules the code as found keeps calling the replicator with an EMPTY candidate list: a holder remembered from
-\* an earlier rule does not lower the shortage of a later rule - a phantom shortage that copies nothing.)
-Replicates(d) == \E k \in 1..Len(d.tasks) : Len(d.tasks[k].nodes) > 0
-Quiet(hs) == \A n \in hs : LET d == Decide27(n, hs, {}, {}) IN ~Replicates(d) /\ d.del = "none"
-NoTasks(hs) == \A n \in hs : ~Replicates(Decide27(n, hs, {}, {}))
- \* a check "replicates" when it hands the replicator a task with at least one candidate node. (With overlapping
-\* rules the code as found keeps calling the replicator with an EMPTY candidate list: a holder remembered from
-\* an earlier rule does not lower the shortage of a later rule - a phantom shortage that copies nothing.)
-Replicates(d) == \E k \in 1..Len(d.tasks) : Len(d.tasks[k].nodes) > 0
-Quiet(hs) == \A n \in hs : LET d == Decide27(n, hs, {}, {}) IN ~Replicates(d) /\ d.del = "none"
-NoTasks(hs) == \A n \in hs : ~Replicates(Decide27(n, hs, {}, {}))
- \* a check "replicates" when it hands the replicator a task with at least one candidate node. (With overlapping
-\* rules the code as found keeps calling the replicator with an EMPTY candidate list: a holder remembered from
-\* an earlier rule does not lower the shortage of a later rule - a phantom shortage that copies nothing.)
-Replicates(d) == \E k \in 1..Len(d.tasks) : Len(d.tasks[k].nodes) > 0
-Quiet(hs) == \A n \in hs : LET d == Decide27(n, hs, {}, {}) IN ~Replicates(d) /\ d.del = "none"
-NoTasks(hs) == \A n \in hs : ~Replicates(Decide27(n, hs, {}, {}))
- \* a check "replicates" when it hands the replicator a task with at least one candidate node. (With overlapping
-\* rules the code as found keeps calling the replicator with an EMPTY candidate list: a holder remembered from
-\* an earlier rule does not lower the shortage of a later rule - a phantom shortage that copies nothing.)
-Replicates(d) == \E k \in 1..Len(d.tasks) : Len(d.tasks[k].nodes) > 0
-Quiet(hs) == \A n \in hs : LET d == Decide27(n, hs, {}, {}) IN ~Replicates(d) /\ d.del = "none"
-NoTasks(hs) == \A n \in hs : ~Replicates(Decide27(n, hs, {}, {}))
- \* a check "replicates" when it hands the replicator a task with at least one candidate node. (With overlapping
-\* rules the code as found keeps calling the replicator with an EMPTY candidate list: a holder remembered from
-\* an earlier rule does not lower the shortage of a later rule - a phantom shortage that copies nothing.)
-Replicates(d) == \E k \in 1..Len(d.tasks) : Len(d.tasks[k].nodes) > 0
-Quiet(hs) == \A n \in hs : LET d == Decide27(n, hs, {}, {}) IN ~Replicates(d) /\ d.del = "none"
-NoTasks(hs) == \A n \in hs : ~Replicates(Decide27(n, hs, {}, {}))
- \* a check "replicates" when it hands the replicator a task with at least one candidate node. (With overlapping
-\* rules the code as found keeps calling the replicator with an EMPTY candidate list: a holder remembered from
-\* an earlier rule does not lower the shortage of a later rule - a phantom shortage that copies nothing.)
-Replicates(d) == \E k \in 1..Len(d.tasks) : Len(d.tasks[k].nodes) > 0
-Quiet(hs) == \A n \in hs : LET d == Decide27(n, hs, {}, {}) IN ~Replicates(d) /\ d.del = "none"
-NoTasks(hs) == \A n \in hs : ~Replicates(Decide27(n, hs, {}, {}))
- \* a check "replicates" when it hands the replicator a task with at least one candidate node. (With overlapping
-\* rules the code as found keeps calling the replicator with an EMPTY candidate list: a holder remembered from
-\* an earlier rule does not lower the shortage of a later rule - a phantom shortage that copies nothing.)
-Replicates(d) == \E k \in 1..Len(d.tasks) : Len(d.tasks[k].nodes) > 0
-Quiet(hs) == \A n \in hs : LET d == Decide27(n, hs, {}, {}) IN ~Replicates(d) /\ d.del = "none"
-NoTasks(hs) == \A n \in hs : ~Replicates(Decide27(n, hs, {}, {}))
-/\* a check "replicates" when it hands the replicator a task with at least one candidate node. (With overlapping
-\* rules the code as found keeps calling the replicator with an EMPTY candidate list: a holder remembered from
-\* an earlier rule does not lower the shortage of a later rule - a phantom shortage that copies nothing.)
-Replicates(d) == \E k \in 1..Len(d.tasks) : Len(d.tasks[k].nodes) > 0
-Quiet(hs) == \A n \in hs : LET d == Decide27(n, hs, {}, {}) IN ~Replicates(d) /\ d.del = "none"
-NoTasks(hs) == \A n \in hs : ~Replicates(Decide27(n, hs, {}, {}))
-\\* a check "replicates" when it hands the replicator a task with at least one candidate node. (With overlapping
-\* rules the code as found keeps calling the replicator with an EMPTY candidate list: a holder remembered from
-\* an earlier rule does not lower the shortage of a later rule - a phantom shortage that copies nothing.)
-Replicates(d) == \E k \in 1..Len(d.tasks) : Len(d.tasks[k].nodes) > 0
-Quiet(hs) == \A n \in hs : LET d == Decide27(n, hs, {}, {}) IN ~Replicates(d) /\ d.del = "none"
-NoTasks(hs) == \A n \in hs : ~Replicates(Decide27(n, hs, {}, {}))
- \* a check "replicates" when it hands the replicator a task with at least one candidate node. (With overlapping
-\* rules the code as found keeps calling the replicator with an EMPTY candidate list: a holder remembered from
-\* an earlier rule does not lower the shortage of a later rule - a phantom shortage that copies nothing.)
-Replicates(d) == \E k \in 1..Len(d.tasks) : Len(d.tasks[k].nodes) > 0
-Quiet(hs) == \A n \in hs : LET d == Decide27(n, hs, {}, {}) IN ~Replicates(d) /\ d.del = "none"
-NoTasks(hs) == \A n \in hs : ~Replicates(Decide27(n, hs, {}, {}))
-C\* a check "replicates" when it hands the replicator a task with at least one candidate node. (With overlapping
-\* rules the code as found keeps calling the replicator with an EMPTY candidate list: a holder remembered from
-\* an earlier rule does not lower the shortage of a later rule - a phantom shortage that copies nothing.)
-Replicates(d) == \E k \in 1..Len(d.tasks) : Len(d.tasks[k].nodes) > 0
-Quiet(hs) == \A n \in hs : LET d == Decide27(n, hs, {}, {}) IN ~Replicates(d) /\ d.del = "none"
-NoTasks(hs) == \A n \in hs : ~Replicates(Decide27(n, hs, {}, {}))
-h\* a check "replicates" when it hands the replicator a task with at least one candidate node. (With overlapping
-\* rules the code as found keeps calling the replicator with an EMPTY candidate list: a holder remembered from
-\* an earlier rule does not lower the shortage of a later rule - a phantom shortage that copies nothing.)
-Replicates(d) == \E k \in 1..Len(d.tasks) : Len(d.tasks[k].nodes) > 0
-Quiet(hs) == \A n \in hs : LET d == Decide27(n, hs, {}, {}) IN ~Replicates(d) /\ d.del = "none"
-NoTasks(hs) == \A n \in hs : ~Replicates(Decide27(n, hs, {}, {}))
-e\* a check "replicates" when it hands the replicator a task with at least one candidate node. (With overlapping
-\* rules the code as found keeps calling the replicator with an EMPTY candidate list: a holder remembered from
-\* an earlier rule does not lower the shortage of a later rule - a phantom shortage that copies nothing.)
-Replicates(d) == \E k \in 1..Len(d.tasks) : Len(d.tasks[k].nodes) > 0
-Quiet(hs) == \A n \in hs : LET d == Decide27(n, hs, {}, {}) IN ~Replicates(d) /\ d.del = "none"
-NoTasks(hs) == \A n \in hs : ~Replicates(Decide27(n, hs, {}, {}))
-c\* a check "replicates" when it hands the replicator a task with at least one candidate node. (With overlapping
-\* rules the code as found keeps calling the replicator with an EMPTY candidate list: a holder remembered from
-\* an earlier rule does not lower the shortage of a later rule - a phantom shortage that copies nothing.)
-Replicates(d) == \E k \in 1..Len(d.tasks) : Len(d.tasks[k].nodes) > 0
-Quiet(hs) == \A n \in hs : LET d == Decide27(n, hs, {}, {}) IN ~Replicates(d) /\ d.del = "none"
-NoTasks(hs) == \A n \in hs : ~Replicates(Decide27(n, hs, {}, {}))
-k\* a check "replicates" when it hands the replicator a task with at least one candidate node. (With overlapping
-\* rules the code as found keeps calling the replicator with an EMPTY candidate list: a holder remembered from
-\* an earlier rule does not lower the shortage of a later rule - a phantom shortage that copies nothing.)
-Replicates(d) == \E k \in 1..Len(d.tasks) : Len(d.tasks[k].nodes) > 0
-Quiet(hs) == \A n \in hs : LET d == Decide27(n, hs, {}, {}) IN ~Replicates(d) /\ d.del = "none"
-NoTasks(hs) == \A n \in hs : ~Replicates(Decide27(n, hs, {}, {}))
-(\* a check "replicates" when it hands the replicator a task with at least one candidate node. (With overlapping
-\* rules the code as found keeps calling the replicator with an EMPTY candidate list: a holder remembered from
-\* an earlier rule does not lower the shortage of a later rule - a phantom shortage that copies nothing.)
-Replicates(d) == \E k \in 1..Len(d.tasks) : Len(d.tasks[k].nodes) > 0
-Quiet(hs) == \A n \in hs : LET d == Decide27(n, hs, {}, {}) IN ~Replicates(d) /\ d.del = "none"
-NoTasks(hs) == \A n \in hs : ~Replicates(Decide27(n, hs, {}, {}))
-n\* a check "replicates" when it hands the replicator a task with at least one candidate node. (With overlapping
-\* rules the code as found keeps calling the replicator with an EMPTY candidate list: a holder remembered from
-\* an earlier rule does not lower the shortage of a later rule - a phantom shortage that copies nothing.)
-Replicates(d) == \E k \in 1..Len(d.tasks) : Len(d.tasks[k].nodes) > 0
-Quiet(hs) == \A n \in hs : LET d == Decide27(n, hs, {}, {}) IN ~Replicates(d) /\ d.del = "none"
-NoTasks(hs) == \A n \in hs : ~Replicates(Decide27(n, hs, {}, {}))
-,\* a check "replicates" when it hands the replicator a task with at least one candidate node. (With overlapping
-\* rules the code as found keeps calling the replicator with an EMPTY candidate list: a holder remembered from
-\* an earlier rule does not lower the shortage of a later rule - a phantom shortage that copies nothing.)
-Replicates(d) == \E k \in 1..Len(d.tasks) : Len(d.tasks[k].nodes) > 0
-Quiet(hs) == \A n \in hs : LET d == Decide27(n, hs, {}, {}) IN ~Replicates(d) /\ d.del = "none"
-NoTasks(hs) == \A n \in hs : ~Replicates(Decide27(n, hs, {}, {}))
- \* a check "replicates" when it hands the replicator a task with at least one candidate node. (With overlapping
-\* rules the code as found keeps calling the replicator with an EMPTY candidate list: a holder remembered from
-\* an earlier rule does not lower the shortage of a later rule - a phantom shortage that copies nothing.)
-Replicates(d) == \E k \in 1..Len(d.tasks) : Len(d.tasks[k].nodes) > 0
-Quiet(hs) == \A n \in hs : LET d == Decide27(n, hs, {}, {}) IN ~Replicates(d) /\ d.del = "none"
-NoTasks(hs) == \A n \in hs : ~Replicates(Decide27(n, hs, {}, {}))
-{\* a check "replicates" when it hands the replicator a task with at least one candidate node. (With overlapping
-\* rules the code as found keeps calling the replicator with an EMPTY candidate list: a holder remembered from
-\* an earlier rule does not lower the shortage of a later rule - a phantom shortage that copies nothing.)
-Replicates(d) == \E k \in 1..Len(d.tasks) : Len(d.tasks[k].nodes) > 0
-Quiet(hs) == \A n \in hs : LET d == Decide27(n, hs, {}, {}) IN ~Replicates(d) /\ d.del = "none"
-NoTasks(hs) == \A n \in hs : ~Replicates(Decide27(n, hs, {}, {}))
-}\* a check "replicates" when it hands the replicator a task with at least one candidate node. (With overlapping
-\* rules the code as found keeps calling the replicator with an EMPTY candidate list: a holder remembered from
-\* an earlier rule does not lower the shortage of a later rule - a phantom shortage that copies nothing.)
-Replicates(d) == \E k \in 1..Len(d.tasks) : Len(d.tasks[k].nodes) > 0
-Quiet(hs) == \A n \in hs : LET d == Decide27(n, hs, {}, {}) IN ~Replicates(d) /\ d.del = "none"
-NoTasks(hs) == \A n \in hs : ~Replicates(Decide27(n, hs, {}, {}))
-,\* a check "replicates" when it hands the replicator a task with at least one candidate node. (With overlapping
-\* rules the code as found keeps calling the replicator with an EMPTY candidate list: a holder remembered from
-\* an earlier rule does not lower the shortage of a later rule - a phantom shortage that copies nothing.)
-Replicates(d) == \E k \in 1..Len(d.tasks) : Len(d.tasks[k].nodes) > 0
-Quiet(hs) == \A n \in hs : LET d == Decide27(n, hs, {}, {}) IN ~Replicates(d) /\ d.del = "none"
-NoTasks(hs) == \A n \in hs : ~Replicates(Decide27(n, hs, {}, {}))
- \* a check "replicates" when it hands the replicator a task with at least one candidate node. (With overlapping
-\* rules the code as found keeps calling the replicator with an EMPTY candidate list: a holder remembered from
-\* an earlier rule does not lower the shortage of a later rule - a phantom shortage that copies nothing.)
-Replicates(d) == \E k \in 1..Len(d.tasks) : Len(d.tasks[k].nodes) > 0
-Quiet(hs) == \A n \in hs : LET d == Decide27(n, hs, {}, {}) IN ~Replicates(d) /\ d.del = "none"
-NoTasks(hs) == \A n \in hs : ~Replicates(Decide27(n, hs, {}, {}))
-{\* a check "replicates" when it hands the replicator a task with at least one candidate node. (With overlapping
-\* rules the code as found keeps calling the replicator with an EMPTY candidate list: a holder remembered from
-\* an earlier rule does not lower the shortage of a later rule - a phantom shortage that copies nothing.)
-Replicates(d) == \E k \in 1..Len(d.tasks) : Len(d.tasks[k].nodes) > 0
-Quiet(hs) == \A n \in hs : LET d == Decide27(n, hs, {}, {}) IN ~Replicates(d) /\ d.del = "none"
-NoTasks(hs) == \A n \in hs : ~Replicates(Decide27(n, hs, {}, {}))
-}\* a check "replicates" when it hands the replicator a task with at least one candidate node. (With overlapping
-\* rules the code as found keeps calling the replicator with an EMPTY candidate list: a holder remembered from
-\* an earlier rule does not lower the shortage of a later rule - a phantom shortage that copies nothing.)
-Replicates(d) == \E k \in 1..Len(d.tasks) : Len(d.tasks[k].nodes) > 0
-Quiet(hs) == \A n \in hs : LET d == Decide27(n, hs, {}, {}) IN ~Replicates(d) /\ d.del = "none"
-NoTasks(hs) == \A n \in hs : ~Replicates(Decide27(n, hs, {}, {}))
-)\* a check "replicates" when it hands the replicator a task with at least one candidate node. (With overlapping
-\* rules the code as found keeps calling the replicator with an EMPTY candidate list: a holder remembered from
-\* an earlier rule does not lower the shortage of a later rule - a phantom shortage that copies nothing.)
-Replicates(d) == \E k \in 1..Len(d.tasks) : Len(d.tasks[k].nodes) > 0
-Quiet(hs) == \A n \in hs : LET d == Decide27(n, hs, {}, {}) IN ~Replicates(d) /\ d.del = "none"
-NoTasks(hs) == \A n \in hs : ~Replicates(Decide27(n, hs, {}, {}))
-
-\* a check "replicates" when it hands the replicator a task with at least one candidate node. (With overlapping
-\* rules the code as found keeps calling the replicator with an EMPTY candidate list: a holder remembered from
-\* an earlier rule does not lower the shortage of a later rule - a phantom shortage that copies nothing.)
-Replicates(d) == \E k \in 1..Len(d.tasks) : Len(d.tasks[k].nodes) > 0
-Quiet(hs) == \A n \in hs : LET d == Decide27(n, hs, {}, {}) IN ~Replicates(d) /\ d.del = "none"
-NoTasks(hs) == \A n \in hs : ~Replicates(Decide27(n, hs, {}, {}))
- \* a check "replicates" when it hands the replicator a task with at least one candidate node. (With overlapping
-\* rules the code as found keeps calling the replicator with an EMPTY candidate list: a holder remembered from
-\* an earlier rule does not lower the shortage of a later rule - a phantom shortage that copies nothing.)
-Replicates(d) == \E k \in 1..Len(d.tasks) : Len(d.tasks[k].nodes) > 0
-Quiet(hs) == \A n \in hs : LET d == Decide27(n, hs, {}, {}) IN ~Replicates(d) /\ d.del = "none"
-NoTasks(hs) == \A n \in hs : ~Replicates(Decide27(n, hs, {}, {}))
- \* a check "replicates" when it hands the replicator a task with at least one candidate node. (With overlapping
-\* rules the code as found keeps calling the replicator with an EMPTY candidate list: a holder remembered from
-\* an earlier rule does not lower the shortage of a later rule - a phantom shortage that copies nothing.)
-Replicates(d) == \E k \in 1..Len(d.tasks) : Len(d.tasks[k].nodes) > 0
-Quiet(hs) == \A n \in hs : LET d == Decide27(n, hs, {}, {}) IN ~Replicates(d) /\ d.del = "none"
-NoTasks(hs) == \A n \in hs : ~Replicates(Decide27(n, hs, {}, {}))
- \* a check "replicates" when it hands the replicator a task with at least one candidate node. (With overlapping
-\* rules the code as found keeps calling the replicator with an EMPTY candidate list: a holder remembered from
-\* an earlier rule does not lower the shortage of a later rule - a phantom shortage that copies nothing.)
-Replicates(d) == \E k \in 1..Len(d.tasks) : Len(d.tasks[k].nodes) > 0
-Quiet(hs) == \A n \in hs : LET d == Decide27(n, hs, {}, {}) IN ~Replicates(d) /\ d.del = "none"
-NoTasks(hs) == \A n \in hs : ~Replicates(Decide27(n, hs, {}, {}))
- \* a check "replicates" when it hands the replicator a task with at least one candidate node. (With overlapping
-\* rules the code as found keeps calling the replicator with an EMPTY candidate list: a holder remembered from
-\* an earlier rule does not lower the shortage of a later rule - a phantom shortage that copies nothing.)
-Replicates(d) == \E k \in 1..Len(d.tasks) : Len(d.tasks[k].nodes) > 0
-Quiet(hs) == \A n \in hs : LET d == Decide27(n, hs, {}, {}) IN ~Replicates(d) /\ d.del = "none"
-NoTasks(hs) == \A n \in hs : ~Replicates(Decide27(n, hs, {}, {}))
- \* a check "replicates" when it hands the replicator a task with at least one candidate node. (With overlapping
-\* rules the code as found keeps calling the replicator with an EMPTY candidate list: a holder remembered from
-\* an earlier rule does not lower the shortage of a later rule - a phantom shortage that copies nothing.)
-Replicates(d) == \E k \in 1..Len(d.tasks) : Len(d.tasks[k].nodes) > 0
-Quiet(hs) == \A n \in hs : LET d == Decide27(n, hs, {}, {}) IN ~Replicates(d) /\ d.del = "none"
-NoTasks(hs) == \A n \in hs : ~Replicates(Decide27(n, hs, {}, {}))
- \* a check "replicates" when it hands the replicator a task with at least one candidate node. (With overlapping
-\* rules the code as found keeps calling the replicator with an EMPTY candidate list: a holder remembered from
-\* an earlier rule does not lower the shortage of a later rule - a phantom shortage that copies nothing.)
-Replicates(d) == \E k \in 1..Len(d.tasks) : Len(d.tasks[k].nodes) > 0
-Quiet(hs) == \A n \in hs : LET d == Decide27(n, hs, {}, {}) IN ~Replicates(d) /\ d.del = "none"
-NoTasks(hs) == \A n \in hs : ~Replicates(Decide27(n, hs, {}, {}))
- \* a check "replicates" when it hands the replicator a task with at least one candidate node. (With overlapping
-\* rules the code as found keeps calling the replicator with an EMPTY candidate list: a holder remembered from
-\* an earlier rule does not lower the shortage of a later rule - a phantom shortage that copies nothing.)
-Replicates(d) == \E k \in 1..Len(d.tasks) : Len(d.tasks[k].nodes) > 0
-Quiet(hs) == \A n \in hs : LET d == Decide27(n, hs, {}, {}) IN ~Replicates(d) /\ d.del = "none"
-NoTasks(hs) == \A n \in hs : ~Replicates(Decide27(n, hs, {}, {}))
- \* a check "replicates" when it hands the replicator a task with at least one candidate node. (With overlapping
-\* rules the code as found keeps calling the replicator with an EMPTY candidate list: a holder remembered from
-\* an earlier rule does not lower the shortage of a later rule - a phantom shortage that copies nothing.)
-Replicates(d) == \E k \in 1..Len(d.tasks) : Len(d.tasks[k].nodes) > 0
-Quiet(hs) == \A n \in hs : LET d == Decide27(n, hs, {}, {}) IN ~Replicates(d) /\ d.del = "none"
-NoTasks(hs) == \A n \in hs : ~Replicates(Decide27(n, hs, {}, {}))
- \* a check "replicates" when it hands the replicator a task with at least one candidate node. (With overlapping
-\* rules the code as found keeps calling the replicator with an EMPTY candidate list: a holder remembered from
-\* an earlier rule does not lower the shortage of a later rule - a phantom shortage that copies nothing.)
-Replicates(d) == \E k \in 1..Len(d.tasks) : Len(d.tasks[k].nodes) > 0
-Quiet(hs) == \A n \in hs : LET d == Decide27(n, hs, {}, {}) IN ~Replicates(d) /\ d.del = "none"
-NoTasks(hs) == \A n \in hs : ~Replicates(Decide27(n, hs, {}, {}))
- \* a check "replicates" when it hands the replicator a task with at least one candidate node. (With overlapping
-\* rules the code as found keeps calling the replicator with an EMPTY candidate list: a holder remembered from
-\* an earlier rule does not lower the shortage of a later rule - a phantom shortage that copies nothing.)
-Replicates(d) == \E k \in 1..Len(d.tasks) : Len(d.tasks[k].nodes) > 0
-Quiet(hs) == \A n \in hs : LET d == Decide27(n, hs, {}, {}) IN ~Replicates(d) /\ d.del = "none"
-NoTasks(hs) == \A n \in hs : ~Replicates(Decide27(n, hs, {}, {}))
- \* a check "replicates" when it hands the replicator a task with at least one candidate node. (With overlapping
-\* rules the code as found keeps calling the replicator with an EMPTY candidate list: a holder remembered from
-\* an earlier rule does not lower the shortage of a later rule - a phantom shortage that copies nothing.)
-Replicates(d) == \E k \in 1..Len(d.tasks) : Len(d.tasks[k].nodes) > 0
-Quiet(hs) == \A n \in hs : LET d == Decide27(n, hs, {}, {}) IN ~Replicates(d) /\ d.del = "none"
-NoTasks(hs) == \A n \in hs : ~Replicates(Decide27(n, hs, {}, {}))
- \* a check "replicates" when it hands the replicator a task with at least one candidate node. (With overlapping
-\* rules the code as found keeps calling the replicator with an EMPTY candidate list: a holder remembered from
-\* an earlier rule does not lower the shortage of a later rule - a phantom shortage that copies nothing.)
-Replicates(d) == \E k \in 1..Len(d.tasks) : Len(d.tasks[k].nodes) > 0
-Quiet(hs) == \A n \in hs : LET d == Decide27(n, hs, {}, {}) IN ~Replicates(d) /\ d.del = "none"
-NoTasks(hs) == \A n \in hs : ~Replicates(Decide27(n, hs, {}, {}))
- \* a check "replicates" when it hands the replicator a task with at least one candidate node. (With overlapping
-\* rules the code as found keeps calling the replicator with an EMPTY candidate list: a holder remembered from
-\* an earlier rule does not lower the shortage of a later rule - a phantom shortage that copies nothing.)
-Replicates(d) == \E k \in 1..Len(d.tasks) : Len(d.tasks[k].nodes) > 0
-Quiet(hs) == \A n \in hs : LET d == Decide27(n, hs, {}, {}) IN ~Replicates(d) /\ d.del = "none"
-NoTasks(hs) == \A n \in hs : ~Replicates(Decide27(n, hs, {}, {}))
- \* a check "replicates" when it hands the replicator a task with at least one candidate node. (With overlapping
-\* rules the code as found keeps calling the replicator with an EMPTY candidate list: a holder remembered from
-\* an earlier rule does not lower the shortage of a later rule - a phantom shortage that copies nothing.)
-Replicates(d) == \E k \in 1..Len(d.tasks) : Len(d.tasks[k].nodes) > 0
-Quiet(hs) == \A n \in hs : LET d == Decide27(n, hs, {}, {}) IN ~Replicates(d) /\ d.del = "none"
-NoTasks(hs) == \A n \in hs : ~Replicates(Decide27(n, hs, {}, {}))
- \* a check "replicates" when it hands the replicator a task with at least one candidate node. (With overlapping
-\* rules the code as found keeps calling the replicator with an EMPTY candidate list: a holder remembered from
-\* an earlier rule does not lower the shortage of a later rule - a phantom shortage that copies nothing.)
-Replicates(d) == \E k \in 1..Len(d.tasks) : Len(d.tasks[k].nodes) > 0
-Quiet(hs) == \A n \in hs : LET d == Decide27(n, hs, {}, {}) IN ~Replicates(d) /\ d.del = "none"
-NoTasks(hs) == \A n \in hs : ~Replicates(Decide27(n, hs, {}, {}))
-/\* a check "replicates" when it hands the replicator a task with at least one candidate node. (With overlapping
-\* rules the code as found keeps calling the replicator with an EMPTY candidate list: a holder remembered from
-\* an earlier rule does not lower the shortage of a later rule - a phantom shortage that copies nothing.)
-Replicates(d) == \E k \in 1..Len(d.tasks) : Len(d.tasks[k].nodes) > 0
-Quiet(hs) == \A n \in hs : LET d == Decide27(n, hs, {}, {}) IN ~Replicates(d) /\ d.del = "none"
-NoTasks(hs) == \A n \in hs : ~Replicates(Decide27(n, hs, {}, {}))
-\\* a check "replicates" when it hands the replicator a task with at least one candidate node. (With overlapping
-\* rules the code as found keeps calling the replicator with an EMPTY candidate list: a holder remembered from
-\* an earlier rule does not lower the shortage of a later rule - a phantom shortage that copies nothing.)
-Replicates(d) == \E k \in 1..Len(d.tasks) : Len(d.tasks[k].nodes) > 0
-Quiet(hs) == \A n \in hs : LET d == Decide27(n, hs, {}, {}) IN ~Replicates(d) /\ d.del = "none"
-NoTasks(hs) == \A n \in hs : ~Replicates(Decide27(n, hs, {}, {}))
- \* a check "replicates" when it hands the replicator a task with at least one candidate node. (With overlapping
-\* rules the code as found keeps calling the replicator with an EMPTY candidate list: a holder remembered from
-\* an earlier rule does not lower the shortage of a later rule - a phantom shortage that copies nothing.)
-Replicates(d) == \E k \in 1..Len(d.tasks) : Len(d.tasks[k].nodes) > 0
-Quiet(hs) == \A n \in hs : LET d == Decide27(n, hs, {}, {}) IN ~Replicates(d) /\ d.del = "none"
-NoTasks(hs) == \A n \in hs : ~Replicates(Decide27(n, hs, {}, {}))
-L\* a check "replicates" when it hands the replicator a task with at least one candidate node. (With overlapping
-\* rules the code as found keeps calling the replicator with an EMPTY candidate list: a holder remembered from
-\* an earlier rule does not lower the shortage of a later rule - a phantom shortage that copies nothing.)
-Replicates(d) == \E k \in 1..Len(d.tasks) : Len(d.tasks[k].nodes) > 0
-Quiet(hs) == \A n \in hs : LET d == Decide27(n, hs, {}, {}) IN ~Replicates(d) /\ d.del = "none"
-NoTasks(hs) == \A n \in hs : ~Replicates(Decide27(n, hs, {}, {}))
-E\* a check "replicates" when it hands the replicator a task with at least one candidate node. (With overlapping
-\* rules the code as found keeps calling the replicator with an EMPTY candidate list: a holder remembered from
-\* an earlier rule does not lower the shortage of a later rule - a phantom shortage that copies nothing.)
-Replicates(d) == \E k \in 1..Len(d.tasks) : Len(d.tasks[k].nodes) > 0
-Quiet(hs) == \A n \in hs : LET d == Decide27(n, hs, {}, {}) IN ~Replicates(d) /\ d.del = "none"
-NoTasks(hs) == \A n \in hs : ~Replicates(Decide27(n, hs, {}, {}))
-T\* a check "replicates" when it hands the replicator a task with at least one candidate node. (With overlapping
-\* rules the code as found keeps calling the replicator with an EMPTY candidate list: a holder remembered from
-\* an earlier rule does not lower the shortage of a later rule - a phantom shortage that copies nothing.)
-Replicates(d) == \E k \in 1..Len(d.tasks) : Len(d.tasks[k].nodes) > 0
-Quiet(hs) == \A n \in hs : LET d == Decide27(n, hs, {}, {}) IN ~Replicates(d) /\ d.del = "none"
-NoTasks(hs) == \A n \in hs : ~Replicates(Decide27(n, hs, {}, {}))
- \* a check "replicates" when it hands the replicator a task with at least one candidate node. (With overlapping
-\* rules the code as found keeps calling the replicator with an EMPTY candidate list: a holder remembered from
-\* an earlier rule does not lower the shortage of a later rule - a phantom shortage that copies nothing.)
-Replicates(d) == \E k \in 1..Len(d.tasks) : Len(d.tasks[k].nodes) > 0
-Quiet(hs) == \A n \in hs : LET d == Decide27(n, hs, {}, {}) IN ~Replicates(d) /\ d.del = "none"
-NoTasks(hs) == \A n \in hs : ~Replicates(Decide27(n, hs, {}, {}))
-r\* a check "replicates" when it hands the replicator a task with at least one candidate node. (With overlapping
-\* rules the code as found keeps calling the replicator with an EMPTY candidate list: a holder remembered from
-\* an earlier rule does not lower the shortage of a later rule - a phantom shortage that copies nothing.)
-Replicates(d) == \E k \in 1..Len(d.tasks) : Len(d.tasks[k].nodes) > 0
-Quiet(hs) == \A n \in hs : LET d == Decide27(n, hs, {}, {}) IN ~Replicates(d) /\ d.del = "none"
-NoTasks(hs) == \A n \in hs : ~Replicates(Decide27(n, hs, {}, {}))
-a\* a check "replicates" when it hands the replicator a task with at least one candidate node. (With overlapping
-\* rules the code as found keeps calling the replicator with an EMPTY candidate list: a holder remembered from
-\* an earlier rule does not lower the shortage of a later rule - a phantom shortage that copies nothing.)
-Replicates(d) == \E k \in 1..Len(d.tasks) : Len(d.tasks[k].nodes) > 0
-Quiet(hs) == \A n \in hs : LET d == Decide27(n, hs, {}, {}) IN ~Replicates(d) /\ d.del = "none"
-NoTasks(hs) == \A n \in hs : ~Replicates(Decide27(n, hs, {}, {}))
-n\* a check "replicates" when it hands the replicator a task with at least one candidate node. (With overlapping
-\* rules the code as found keeps calling the replicator with an EMPTY candidate list: a holder remembered from
-\* an earlier rule does not lower the shortage of a later rule - a phantom shortage that copies nothing.)
-Replicates(d) == \E k \in 1..Len(d.tasks) : Len(d.tasks[k].nodes) > 0
-Quiet(hs) == \A n \in hs : LET d == Decide27(n, hs, {}, {}) IN ~Replicates(d) /\ d.del = "none"
-NoTasks(hs) == \A n \in hs : ~Replicates(Decide27(n, hs, {}, {}))
-1\* a check "replicates" when it hands the replicator a task with at least one candidate node. (With overlapping
-\* rules the code as found keeps calling the replicator with an EMPTY candidate list: a holder remembered from
-\* an earlier rule does not lower the shortage of a later rule - a phantom shortage that copies nothing.)
-Replicates(d) == \E k \in 1..Len(d.tasks) : Len(d.tasks[k].nodes) > 0
-Quiet(hs) == \A n \in hs : LET d == Decide27(n, hs, {}, {}) IN ~Replicates(d) /\ d.del = "none"
-NoTasks(hs) == \A n \in hs : ~Replicates(Decide27(n, hs, {}, {}))
- \* a check "replicates" when it hands the replicator a task with at least one candidate node. (With overlapping
-\* rules the code as found keeps calling the replicator with an EMPTY candidate list: a holder remembered from
-\* an earlier rule does not lower the shortage of a later rule - a phantom shortage that copies nothing.)
-Replicates(d) == \E k \in 1..Len(d.tasks) : Len(d.tasks[k].nodes) > 0
-Quiet(hs) == \A n \in hs : LET d == Decide27(n, hs, {}, {}) IN ~Replicates(d) /\ d.del = "none"
-NoTasks(hs) == \A n \in hs : ~Replicates(Decide27(n, hs, {}, {}))
-=\* a check "replicates" when it hands the replicator a task with at least one candidate node. (With overlapping
-\* rules the code as found keeps calling the replicator with an EMPTY candidate list: a holder remembered from
-\* an earlier rule does not lower the shortage of a later rule - a phantom shortage that copies nothing.)
-Replicates(d) == \E k \in 1..Len(d.tasks) : Len(d.tasks[k].nodes) > 0
-Quiet(hs) == \A n \in hs : LET d == Decide27(n, hs, {}, {}) IN ~Replicates(d) /\ d.del = "none"
-NoTasks(hs) == \A n \in hs : ~Replicates(Decide27(n, hs, {}, {}))
-=\* a check "replicates" when it hands the replicator a task with at least one candidate node. (With overlapping
-\* rules the code as found keeps calling the replicator with an EMPTY candidate list: a holder remembered from
-\* an earlier rule does not lower the shortage of a later rule - a phantom shortage that copies nothing.)
-Replicates(d) == \E k \in 1..Len(d.tasks) : Len(d.tasks[k].nodes) > 0
-Quiet(hs) == \A n \in hs : LET d == Decide27(n, hs, {}, {}) IN ~Replicates(d) /\ d.del = "none"
-NoTasks(hs) == \A n \in hs : ~Replicates(Decide27(n, hs, {}, {}))
- \* a check "replicates" when it hands the replicator a task with at least one candidate node. (With overlapping
-\* rules the code as found keeps calling the replicator with an EMPTY candidate list: a holder remembered from
-\* an earlier rule does not lower the shortage of a later rule - a phantom shortage that copies nothing.)
-Replicates(d) == \E k \in 1..Len(d.tasks) : Len(d.tasks[k].nodes) > 0
-Quiet(hs) == \A n \in hs : LET d == Decide27(n, hs, {}, {}) IN ~Replicates(d) /\ d.del = "none"
-NoTasks(hs) == \A n \in hs : ~Replicates(Decide27(n, hs, {}, {}))
-r\* a check "replicates" when it hands the replicator a task with at least one candidate node. (With overlapping
-\* rules the code as found keeps calling the replicator with an EMPTY candidate list: a holder remembered from
-\* an earlier rule does not lower the shortage of a later rule - a phantom shortage that copies nothing.)
-Replicates(d) == \E k \in 1..Len(d.tasks) : Len(d.tasks[k].nodes) > 0
-Quiet(hs) == \A n \in hs : LET d == Decide27(n, hs, {}, {}) IN ~Replicates(d) /\ d.del = "none"
-NoTasks(hs) == \A n \in hs : ~Replicates(Decide27(n, hs, {}, {}))
-a\* a check "replicates" when it hands the replicator a task with at least one candidate node. (With overlapping
-\* rules the code as found keeps calling the replicator with an EMPTY candidate list: a holder remembered from
-\* an earlier rule does not lower the shortage of a later rule - a phantom shortage that copies nothing.)
-Replicates(d) == \E k \in 1..Len(d.tasks) : Len(d.tasks[k].nodes) > 0
-Quiet(hs) == \A n \in hs : LET d == Decide27(n, hs, {}, {}) IN ~Replicates(d) /\ d.del = "none"
-NoTasks(hs) == \A n \in hs : ~Replicates(Decide27(n, hs, {}, {}))
-n\* a check "replicates" when it hands the replicator a task with at least one candidate node. (With overlapping
-\* rules the code as found keeps calling the replicator with an EMPTY candidate list: a holder remembered from
-\* an earlier rule does not lower the shortage of a later rule - a phantom shortage that copies nothing.)
-Replicates(d) == \E k \in 1..Len(d.tasks) : Len(d.tasks[k].nodes) > 0
-Quiet(hs) == \A n \in hs : LET d == Decide27(n, hs, {}, {}) IN ~Replicates(d) /\ d.del = "none"
-NoTasks(hs) == \A n \in hs : ~Replicates(Decide27(n, hs, {}, {}))
- \* a check "replicates" when it hands the replicator a task with at least one candidate node. (With overlapping
-\* rules the code as found keeps calling the replicator with an EMPTY candidate list: a holder remembered from
-\* an earlier rule does not lower the shortage of a later rule - a phantom shortage that copies nothing.)
-Replicates(d) == \E k \in 1..Len(d.tasks) : Len(d.tasks[k].nodes) > 0
-Quiet(hs) == \A n \in hs : LET d == Decide27(n, hs, {}, {}) IN ~Replicates(d) /\ d.del = "none"
-NoTasks(hs) == \A n \in hs : ~Replicates(Decide27(n, hs, {}, {}))
-\\* a check "replicates" when it hands the replicator a task with at least one candidate node. (With overlapping
-\* rules the code as found keeps calling the replicator with an EMPTY candidate list: a holder remembered from
-\* an earlier rule does not lower the shortage of a later rule - a phantom shortage that copies nothing.)
-Replicates(d) == \E k \in 1..Len(d.tasks) : Len(d.tasks[k].nodes) > 0
-Quiet(hs) == \A n \in hs : LET d == Decide27(n, hs, {}, {}) IN ~Replicates(d) /\ d.del = "none"
-NoTasks(hs) == \A n \in hs : ~Replicates(Decide27(n, hs, {}, {}))
-c\* a check "replicates" when it hands the replicator a task with at least one candidate node. (With overlapping
-\* rules the code as found keeps calling the replicator with an EMPTY candidate list: a holder remembered from
-\* an earlier rule does not lower the shortage of a later rule - a phantom shortage that copies nothing.)
-Replicates(d) == \E k \in 1..Len(d.tasks) : Len(d.tasks[k].nodes) > 0
-Quiet(hs) == \A n \in hs : LET d == Decide27(n, hs, {}, {}) IN ~Replicates(d) /\ d.del = "none"
-NoTasks(hs) == \A n \in hs : ~Replicates(Decide27(n, hs, {}, {}))
-u\* a check "replicates" when it hands the replicator a task with at least one candidate node. (With overlapping
-\* rules the code as found keeps calling the replicator with an EMPTY candidate list: a holder remembered from
-\* an earlier rule does not lower the shortage of a later rule - a phantom shortage that copies nothing.)
-Replicates(d) == \E k \in 1..Len(d.tasks) : Len(d.tasks[k].nodes) > 0
-Quiet(hs) == \A n \in hs : LET d == Decide27(n, hs, {}, {}) IN ~Replicates(d) /\ d.del = "none"
-NoTasks(hs) == \A n \in hs : ~Replicates(Decide27(n, hs, {}, {}))
-p\* a check "replicates" when it hands the replicator a task with at least one candidate node. (With overlapping
-\* rules the code as found keeps calling the replicator with an EMPTY candidate list: a holder remembered from
-\* an earlier rule does not lower the shortage of a later rule - a phantom shortage that copies nothing.)
-Replicates(d) == \E k \in 1..Len(d.tasks) : Len(d.tasks[k].nodes) > 0
-Quiet(hs) == \A n \in hs : LET d == Decide27(n, hs, {}, {}) IN ~Replicates(d) /\ d.del = "none"
-NoTasks(hs) == \A n \in hs : ~Replicates(Decide27(n, hs, {}, {}))
- \* a check "replicates" when it hands the replicator a task with at least one candidate node. (With overlapping
-\* rules the code as found keeps calling the replicator with an EMPTY candidate list: a holder remembered from
-\* an earlier rule does not lower the shortage of a later rule - a phantom shortage that copies nothing.)
-Replicates(d) == \E k \in 1..Len(d.tasks) : Len(d.tasks[k].nodes) > 0
-Quiet(hs) == \A n \in hs : LET d == Decide27(n, hs, {}, {}) IN ~Replicates(d) /\ d.del = "none"
-NoTasks(hs) == \A n \in hs : ~Replicates(Decide27(n, hs, {}, {}))
-{\* a check "replicates" when it hands the replicator a task with at least one candidate node. (With overlapping
-\* rules the code as found keeps calling the replicator with an EMPTY candidate list: a holder remembered from
-\* an earlier rule does not lower the shortage of a later rule - a phantom shortage that copies nothing.)
-Replicates(d) == \E k \in 1..Len(d.tasks) : Len(d.tasks[k].nodes) > 0
-Quiet(hs) == \A n \in hs : LET d == Decide27(n, hs, {}, {}) IN ~Replicates(d) /\ d.del = "none"
-NoTasks(hs) == \A n \in hs : ~Replicates(Decide27(n, hs, {}, {}))
-n\* a check "replicates" when it hands the replicator a task with at least one candidate node. (With overlapping
-\* rules the code as found keeps calling the replicator with an EMPTY candidate list: a holder remembered from
-\* an earlier rule does not lower the shortage of a later rule - a phantom shortage that copies nothing.)
-Replicates(d) == \E k \in 1..Len(d.tasks) : Len(d.tasks[k].nodes) > 0
-Quiet(hs) == \A n \in hs : LET d == Decide27(n, hs, {}, {}) IN ~Replicates(d) /\ d.del = "none"
-NoTasks(hs) == \A n \in hs : ~Replicates(Decide27(n, hs, {}, {}))
-}\* a check "replicates" when it hands the replicator a task with at least one candidate node. (With overlapping
-\* rules the code as found keeps calling the replicator with an EMPTY candidate list: a holder remembered from
-\* an earlier rule does not lower the shortage of a later rule - a phantom shortage that copies nothing.)
-Replicates(d) == \E k \in 1..Len(d.tasks) : Len(d.tasks[k].nodes) > 0
-Quiet(hs) == \A n \in hs : LET d == Decide27(n, hs, {}, {}) IN ~Replicates(d) /\ d.del = "none"
-NoTasks(hs) == \A n \in hs : ~Replicates(Decide27(n, hs, {}, {}))
- \* a check "replicates" when it hands the replicator a task with at least one candidate node. (With overlapping
-\* rules the code as found keeps calling the replicator with an EMPTY candidate list: a holder remembered from
-\* an earlier rule does not lower the shortage of a later rule - a phantom shortage that copies nothing.)
-Replicates(d) == \E k \in 1..Len(d.tasks) : Len(d.tasks[k].nodes) > 0
-Quiet(hs) == \A n \in hs : LET d == Decide27(n, hs, {}, {}) IN ~Replicates(d) /\ d.del = "none"
-NoTasks(hs) == \A n \in hs : ~Replicates(Decide27(n, hs, {}, {}))
-I\* a check "replicates" when it hands the replicator a task with at least one candidate node. (With overlapping
-\* rules the code as found keeps calling the replicator with an EMPTY candidate list: a holder remembered from
-\* an earlier rule does not lower the shortage of a later rule - a phantom shortage that copies nothing.)
-Replicates(d) == \E k \in 1..Len(d.tasks) : Len(d.tasks[k].nodes) > 0
-Quiet(hs) == \A n \in hs : LET d == Decide27(n, hs, {}, {}) IN ~Replicates(d) /\ d.del = "none"
-NoTasks(hs) == \A n \in hs : ~Replicates(Decide27(n, hs, {}, {}))
-N\* a check "replicates" when it hands the replicator a task with at least one candidate node. (With overlapping
-\* rules the code as found keeps calling the replicator with an EMPTY candidate list: a holder remembered from
-\* an earlier rule does not lower the shortage of a later rule - a phantom shortage that copies nothing.)
-Replicates(d) == \E k \in 1..Len(d.tasks) : Len(d.tasks[k].nodes) > 0
-Quiet(hs) == \A n \in hs : LET d == Decide27(n, hs, {}, {}) IN ~Replicates(d) /\ d.del = "none"
-NoTasks(hs) == \A n \in hs : ~Replicates(Decide27(n, hs, {}, {}))
-
-\* a check "replicates" when it hands the replicator a task with at least one candidate node. (With overlapping
-\* rules the code as found keeps calling the replicator with an EMPTY candidate list: a holder remembered from
-\* an earlier rule does not lower the shortage of a later rule - a phantom shortage that copies nothing.)
-Replicates(d) == \E k \in 1..Len(d.tasks) : Len(d.tasks[k].nodes) > 0
-Quiet(hs) == \A n \in hs : LET d == Decide27(n, hs, {}, {}) IN ~Replicates(d) /\ d.del = "none"
-NoTasks(hs) == \A n \in hs : ~Replicates(Decide27(n, hs, {}, {}))
- \* a check "replicates" when it hands the replicator a task with at least one candidate node. (With overlapping
-\* rules the code as found keeps calling the replicator with an EMPTY candidate list: a holder remembered from
-\* an earlier rule does not lower the shortage of a later rule - a phantom shortage that copies nothing.)
-Replicates(d) == \E k \in 1..Len(d.tasks) : Len(d.tasks[k].nodes) > 0
-Quiet(hs) == \A n \in hs : LET d == Decide27(n, hs, {}, {}) IN ~Replicates(d) /\ d.del = "none"
-NoTasks(hs) == \A n \in hs : ~Replicates(Decide27(n, hs, {}, {}))
- \* a check "replicates" when it hands the replicator a task with at least one candidate node. (With overlapping
-\* rules the code as found keeps calling the replicator with an EMPTY candidate list: a holder remembered from
-\* an earlier rule does not lower the shortage of a later rule - a phantom shortage that copies nothing.)
-Replicates(d) == \E k \in 1..Len(d.tasks) : Len(d.tasks[k].nodes) > 0
-Quiet(hs) == \A n \in hs : LET d == Decide27(n, hs, {}, {}) IN ~Replicates(d) /\ d.del = "none"
-NoTasks(hs) == \A n \in hs : ~Replicates(Decide27(n, hs, {}, {}))
- \* a check "replicates" when it hands the replicator a task with at least one candidate node. (With overlapping
-\* rules the code as found keeps calling the replicator with an EMPTY candidate list: a holder remembered from
-\* an earlier rule does not lower the shortage of a later rule - a phantom shortage that copies nothing.)
-Replicates(d) == \E k \in 1..Len(d.tasks) : Len(d.tasks[k].nodes) > 0
-Quiet(hs) == \A n \in hs : LET d == Decide27(n, hs, {}, {}) IN ~Replicates(d) /\ d.del = "none"
-NoTasks(hs) == \A n \in hs : ~Replicates(Decide27(n, hs, {}, {}))
- \* a check "replicates" when it hands the replicator a task with at least one candidate node. (With overlapping
-\* rules the code as found keeps calling the replicator with an EMPTY candidate list: a holder remembered from
-\* an earlier rule does not lower the shortage of a later rule - a phantom shortage that copies nothing.)
-Replicates(d) == \E k \in 1..Len(d.tasks) : Len(d.tasks[k].nodes) > 0
-Quiet(hs) == \A n \in hs : LET d == Decide27(n, hs, {}, {}) IN ~Replicates(d) /\ d.del = "none"
-NoTasks(hs) == \A n \in hs : ~Replicates(Decide27(n, hs, {}, {}))
- \* a check "replicates" when it hands the replicator a task with at least one candidate node. (With overlapping
-\* rules the code as found keeps calling the replicator with an EMPTY candidate list: a holder remembered from
-\* an earlier rule does not lower the shortage of a later rule - a phantom shortage that copies nothing.)
-Replicates(d) == \E k \in 1..Len(d.tasks) : Len(d.tasks[k].nodes) > 0
-Quiet(hs) == \A n \in hs : LET d == Decide27(n, hs, {}, {}) IN ~Replicates(d) /\ d.del = "none"
-NoTasks(hs) == \A n \in hs : ~Replicates(Decide27(n, hs, {}, {}))
- \* a check "replicates" when it hands the replicator a task with at least one candidate node. (With overlapping
-\* rules the code as found keeps calling the replicator with an EMPTY candidate list: a holder remembered from
-\* an earlier rule does not lower the shortage of a later rule - a phantom shortage that copies nothing.)
-Replicates(d) == \E k \in 1..Len(d.tasks) : Len(d.tasks[k].nodes) > 0
-Quiet(hs) == \A n \in hs : LET d == Decide27(n, hs, {}, {}) IN ~Replicates(d) /\ d.del = "none"
-NoTasks(hs) == \A n \in hs : ~Replicates(Decide27(n, hs, {}, {}))
- \* a check "replicates" when it hands the replicator a task with at least one candidate node. (With overlapping
-\* rules the code as found keeps calling the replicator with an EMPTY candidate list: a holder remembered from
-\* an earlier rule does not lower the shortage of a later rule - a phantom shortage that copies nothing.)
-Replicates(d) == \E k \in 1..Len(d.tasks) : Len(d.tasks[k].nodes) > 0
-Quiet(hs) == \A n \in hs : LET d == Decide27(n, hs, {}, {}) IN ~Replicates(d) /\ d.del = "none"
-NoTasks(hs) == \A n \in hs : ~Replicates(Decide27(n, hs, {}, {}))
- \* a check "replicates" when it hands the replicator a task with at least one candidate node. (With overlapping
-\* rules the code as found keeps calling the replicator with an EMPTY candidate list: a holder remembered from
-\* an earlier rule does not lower the shortage of a later rule - a phantom shortage that copies nothing.)
-Replicates(d) == \E k \in 1..Len(d.tasks) : Len(d.tasks[k].nodes) > 0
-Quiet(hs) == \A n \in hs : LET d == Decide27(n, hs, {}, {}) IN ~Replicates(d) /\ d.del = "none"
-NoTasks(hs) == \A n \in hs : ~Replicates(Decide27(n, hs, {}, {}))
- \* a check "replicates" when it hands the replicator a task with at least one candidate node. (With overlapping
-\* rules the code as found keeps calling the replicator with an EMPTY candidate list: a holder remembered from
-\* an earlier rule does not lower the shortage of a later rule - a phantom shortage that copies nothing.)
-Replicates(d) == \E k \in 1..Len(d.tasks) : Len(d.tasks[k].nodes) > 0
-Quiet(hs) == \A n \in hs : LET d == Decide27(n, hs, {}, {}) IN ~Replicates(d) /\ d.del = "none"
-NoTasks(hs) == \A n \in hs : ~Replicates(Decide27(n, hs, {}, {}))
- \* a check "replicates" when it hands the replicator a task with at least one candidate node. (With overlapping
-\* rules the code as found keeps calling the replicator with an EMPTY candidate list: a holder remembered from
-\* an earlier rule does not lower the shortage of a later rule - a phantom shortage that copies nothing.)
-Replicates(d) == \E k \in 1..Len(d.tasks) : Len(d.tasks[k].nodes) > 0
-Quiet(hs) == \A n \in hs : LET d == Decide27(n, hs, {}, {}) IN ~Replicates(d) /\ d.del = "none"
-NoTasks(hs) == \A n \in hs : ~Replicates(Decide27(n, hs, {}, {}))
- \* a check "replicates" when it hands the replicator a task with at least one candidate node. (With overlapping
-\* rules the code as found keeps calling the replicator with an EMPTY candidate list: a holder remembered from
-\* an earlier rule does not lower the shortage of a later rule - a phantom shortage that copies nothing.)
-Replicates(d) == \E k \in 1..Len(d.tasks) : Len(d.tasks[k].nodes) > 0
-Quiet(hs) == \A n \in hs : LET d == Decide27(n, hs, {}, {}) IN ~Replicates(d) /\ d.del = "none"
-NoTasks(hs) == \A n \in hs : ~Replicates(Decide27(n, hs, {}, {}))
- \* a check "replicates" when it hands the replicator a task with at least one candidate node. (With overlapping
-\* rules the code as found keeps calling the replicator with an EMPTY candidate list: a holder remembered from
-\* an earlier rule does not lower the shortage of a later rule - a phantom shortage that copies nothing.)
-Replicates(d) == \E k \in 1..Len(d.tasks) : Len(d.tasks[k].nodes) > 0
-Quiet(hs) == \A n \in hs : LET d == Decide27(n, hs, {}, {}) IN ~Replicates(d) /\ d.del = "none"
-NoTasks(hs) == \A n \in hs : ~Replicates(Decide27(n, hs, {}, {}))
- \* a check "replicates" when it hands the replicator a task with at least one candidate node. (With overlapping
-\* rules the code as found keeps calling the replicator with an EMPTY candidate list: a holder remembered from
-\* an earlier rule does not lower the shortage of a later rule - a phantom shortage that copies nothing.)
-Replicates(d) == \E k \in 1..Len(d.tasks) : Len(d.tasks[k].nodes) > 0
-Quiet(hs) == \A n \in hs : LET d == Decide27(n, hs, {}, {}) IN ~Replicates(d) /\ d.del = "none"
-NoTasks(hs) == \A n \in hs : ~Replicates(Decide27(n, hs, {}, {}))
- \* a check "replicates" when it hands the replicator a task with at least one candidate node. (With overlapping
-\* rules the code as found keeps calling the replicator with an EMPTY candidate list: a holder remembered from
-\* an earlier rule does not lower the shortage of a later rule - a phantom shortage that copies nothing.)
-Replicates(d) == \E k \in 1..Len(d.tasks) : Len(d.tasks[k].nodes) > 0
-Quiet(hs) == \A n \in hs : LET d == Decide27(n, hs, {}, {}) IN ~Replicates(d) /\ d.del = "none"
-NoTasks(hs) == \A n \in hs : ~Replicates(Decide27(n, hs, {}, {}))
- \* a check "replicates" when it hands the replicator a task with at least one candidate node. (With overlapping
-\* rules the code as found keeps calling the replicator with an EMPTY candidate list: a holder remembered from
-\* an earlier rule does not lower the shortage of a later rule - a phantom shortage that copies nothing.)
-Replicates(d) == \E k \in 1..Len(d.tasks) : Len(d.tasks[k].nodes) > 0
-Quiet(hs) == \A n \in hs : LET d == Decide27(n, hs, {}, {}) IN ~Replicates(d) /\ d.del = "none"
-NoTasks(hs) == \A n \in hs : ~Replicates(Decide27(n, hs, {}, {}))
- \* a check "replicates" when it hands the replicator a task with at least one candidate node. (With overlapping
-\* rules the code as found keeps calling the replicator with an EMPTY candidate list: a holder remembered from
-\* an earlier rule does not lower the shortage of a later rule - a phantom shortage that copies nothing.)
-Replicates(d) == \E k \in 1..Len(d.tasks) : Len(d.tasks[k].nodes) > 0
-Quiet(hs) == \A n \in hs : LET d == Decide27(n, hs, {}, {}) IN ~Replicates(d) /\ d.del = "none"
-NoTasks(hs) == \A n \in hs : ~Replicates(Decide27(n, hs, {}, {}))
- \* a check "replicates" when it hands the replicator a task with at least one candidate node. (With overlapping
-\* rules the code as found keeps calling the replicator with an EMPTY candidate list: a holder remembered from
-\* an earlier rule does not lower the shortage of a later rule - a phantom shortage that copies nothing.)
-Replicates(d) == \E k \in 1..Len(d.tasks) : Len(d.tasks[k].nodes) > 0
-Quiet(hs) == \A n \in hs : LET d == Decide27(n, hs, {}, {}) IN ~Replicates(d) /\ d.del = "none"
-NoTasks(hs) == \A n \in hs : ~Replicates(Decide27(n, hs, {}, {}))
- \* a check "replicates" when it hands the replicator a task with at least one candidate node. (With overlapping
-\* rules the code as found keeps calling the replicator with an EMPTY candidate list: a holder remembered from
-\* an earlier rule does not lower the shortage of a later rule - a phantom shortage that copies nothing.)
-Replicates(d) == \E k \in 1..Len(d.tasks) : Len(d.tasks[k].nodes) > 0
-Quiet(hs) == \A n \in hs : LET d == Decide27(n, hs, {}, {}) IN ~Replicates(d) /\ d.del = "none"
-NoTasks(hs) == \A n \in hs : ~Replicates(Decide27(n, hs, {}, {}))
-I\* a check "replicates" when it hands the replicator a task with at least one candidate node. (With overlapping
-\* rules the code as found keeps calling the replicator with an EMPTY candidate list: a holder remembered from
-\* an earlier rule does not lower the shortage of a later rule - a phantom shortage that copies nothing.)
-Replicates(d) == \E k \in 1..Len(d.tasks) : Len(d.tasks[k].nodes) > 0
-Quiet(hs) == \A n \in hs : LET d == Decide27(n, hs, {}, {}) IN ~Replicates(d) /\ d.del = "none"
-NoTasks(hs) == \A n \in hs : ~Replicates(Decide27(n, hs, {}, {}))
-F\* a check "replicates" when it hands the replicator a task with at least one candidate node. (With overlapping
-\* rules the code as found keeps calling the replicator with an EMPTY candidate list: a holder remembered from
-\* an earlier rule does not lower the shortage of a later rule - a phantom shortage that copies nothing.)
-Replicates(d) == \E k \in 1..Len(d.tasks) : Len(d.tasks[k].nodes) > 0
-Quiet(hs) == \A n \in hs : LET d == Decide27(n, hs, {}, {}) IN ~Replicates(d) /\ d.del = "none"
-NoTasks(hs) == \A n \in hs : ~Replicates(Decide27(n, hs, {}, {}))
- \* a check "replicates" when it hands the replicator a task with at least one candidate node. (With overlapping
-\* rules the code as found keeps calling the replicator with an EMPTY candidate list: a holder remembered from
-\* an earlier rule does not lower the shortage of a later rule - a phantom shortage that copies nothing.)
-Replicates(d) == \E k \in 1..Len(d.tasks) : Len(d.tasks[k].nodes) > 0
-Quiet(hs) == \A n \in hs : LET d == Decide27(n, hs, {}, {}) IN ~Replicates(d) /\ d.del = "none"
-NoTasks(hs) == \A n \in hs : ~Replicates(Decide27(n, hs, {}, {}))
-h\* a check "replicates" when it hands the replicator a task with at least one candidate node. (With overlapping
-\* rules the code as found keeps calling the replicator with an EMPTY candidate list: a holder remembered from
-\* an earlier rule does not lower the shortage of a later rule - a phantom shortage that copies nothing.)
-Replicates(d) == \E k \in 1..Len(d.tasks) : Len(d.tasks[k].nodes) > 0
-Quiet(hs) == \A n \in hs : LET d == Decide27(n, hs, {}, {}) IN ~Replicates(d) /\ d.del = "none"
-NoTasks(hs) == \A n \in hs : ~Replicates(Decide27(n, hs, {}, {}))
-o\* a check "replicates" when it hands the replicator a task with at least one candidate node. (With overlapping
-\* rules the code as found keeps calling the replicator with an EMPTY candidate list: a holder remembered from
-\* an earlier rule does not lower the shortage of a later rule - a phantom shortage that copies nothing.)
-Replicates(d) == \E k \in 1..Len(d.tasks) : Len(d.tasks[k].nodes) > 0
-Quiet(hs) == \A n \in hs : LET d == Decide27(n, hs, {}, {}) IN ~Replicates(d) /\ d.del = "none"
-NoTasks(hs) == \A n \in hs : ~Replicates(Decide27(n, hs, {}, {}))
-l\* a check "replicates" when it hands the replicator a task with at least one candidate node. (With overlapping
-\* rules the code as found keeps calling the replicator with an EMPTY candidate list: a holder remembered from
-\* an earlier rule does not lower the shortage of a later rule - a phantom shortage that copies nothing.)
-Replicates(d) == \E k \in 1..Len(d.tasks) : Len(d.tasks[k].nodes) > 0
-Quiet(hs) == \A n \in hs : LET d == Decide27(n, hs, {}, {}) IN ~Replicates(d) /\ d.del = "none"
-NoTasks(hs) == \A n \in hs : ~Replicates(Decide27(n, hs, {}, {}))
-d\* a check "replicates" when it hands the replicator a task with at least one candidate node. (With overlapping
-\* rules the code as found keeps calling the replicator with an EMPTY candidate list: a holder remembered from
-\* an earlier rule does not lower the shortage of a later rule - a phantom shortage that copies nothing.)
-Replicates(d) == \E k \in 1..Len(d.tasks) : Len(d.tasks[k].nodes) > 0
-Quiet(hs) == \A n \in hs : LET d == Decide27(n, hs, {}, {}) IN ~Replicates(d) /\ d.del = "none"
-NoTasks(hs) == \A n \in hs : ~Replicates(Decide27(n, hs, {}, {}))
-e\* a check "replicates" when it hands the replicator a task with at least one candidate node. (With overlapping
-\* rules the code as found keeps calling the replicator with an EMPTY candidate list: a holder remembered from
-\* an earlier rule does not lower the shortage of a later rule - a phantom shortage that copies nothing.)
-Replicates(d) == \E k \in 1..Len(d.tasks) : Len(d.tasks[k].nodes) > 0
-Quiet(hs) == \A n \in hs : LET d == Decide27(n, hs, {}, {}) IN ~Replicates(d) /\ d.del = "none"
-NoTasks(hs) == \A n \in hs : ~Replicates(Decide27(n, hs, {}, {}))
-r\* a check "replicates" when it hands the replicator a task with at least one candidate node. (With overlapping
-\* rules the code as found keeps calling the replicator with an EMPTY candidate list: a holder remembered from
-\* an earlier rule does not lower the shortage of a later rule - a phantom shortage that copies nothing.)
-Replicates(d) == \E k \in 1..Len(d.tasks) : Len(d.tasks[k].nodes) > 0
-Quiet(hs) == \A n \in hs : LET d == Decide27(n, hs, {}, {}) IN ~Replicates(d) /\ d.del = "none"
-NoTasks(hs) == \A n \in hs : ~Replicates(Decide27(n, hs, {}, {}))
-s\* a check "replicates" when it hands the replicator a task with at least one candidate node. (With overlapping
-\* rules the code as found keeps calling the replicator with an EMPTY candidate list: a holder remembered from
-\* an earlier rule does not lower the shortage of a later rule - a phantom shortage that copies nothing.)
-Replicates(d) == \E k \in 1..Len(d.tasks) : Len(d.tasks[k].nodes) > 0
-Quiet(hs) == \A n \in hs : LET d == Decide27(n, hs, {}, {}) IN ~Replicates(d) /\ d.del = "none"
-NoTasks(hs) == \A n \in hs : ~Replicates(Decide27(n, hs, {}, {}))
-'\* a check "replicates" when it hands the replicator a task with at least one candidate node. (With overlapping
-\* rules the code as found keeps calling the replicator with an EMPTY candidate list: a holder remembered from
-\* an earlier rule does not lower the shortage of a later rule - a phantom shortage that copies nothing.)
-Replicates(d) == \E k \in 1..Len(d.tasks) : Len(d.tasks[k].nodes) > 0
-Quiet(hs) == \A n \in hs : LET d == Decide27(n, hs, {}, {}) IN ~Replicates(d) /\ d.del = "none"
-NoTasks(hs) == \A n \in hs : ~Replicates(Decide27(n, hs, {}, {}))
- \* a check "replicates" when it hands the replicator a task with at least one candidate node. (With overlapping
-\* rules the code as found keeps calling the replicator with an EMPTY candidate list: a holder remembered from
-\* an earlier rule does not lower the shortage of a later rule - a phantom shortage that copies nothing.)
-Replicates(d) == \E k \in 1..Len(d.tasks) : Len(d.tasks[k].nodes) > 0
-Quiet(hs) == \A n \in hs : LET d == Decide27(n, hs, {}, {}) IN ~Replicates(d) /\ d.del = "none"
-NoTasks(hs) == \A n \in hs : ~Replicates(Decide27(n, hs, {}, {}))
-\\* a check "replicates" when it hands the replicator a task with at least one candidate node. (With overlapping
-\* rules the code as found keeps calling the replicator with an EMPTY candidate list: a holder remembered from
-\* an earlier rule does not lower the shortage of a later rule - a phantom shortage that copies nothing.)
-Replicates(d) == \E k \in 1..Len(d.tasks) : Len(d.tasks[k].nodes) > 0
-Quiet(hs) == \A n \in hs : LET d == Decide27(n, hs, {}, {}) IN ~Replicates(d) /\ d.del = "none"
-NoTasks(hs) == \A n \in hs : ~Replicates(Decide27(n, hs, {}, {}))
-s\* a check "replicates" when it hands the replicator a task with at least one candidate node. (With overlapping
-\* rules the code as found keeps calling the replicator with an EMPTY candidate list: a holder remembered from
-\* an earlier rule does not lower the shortage of a later rule - a phantom shortage that copies nothing.)
-Replicates(d) == \E k \in 1..Len(d.tasks) : Len(d.tasks[k].nodes) > 0
-Quiet(hs) == \A n \in hs : LET d == Decide27(n, hs, {}, {}) IN ~Replicates(d) /\ d.del = "none"
-NoTasks(hs) == \A n \in hs : ~Replicates(Decide27(n, hs, {}, {}))
-u\* a check "replicates" when it hands the replicator a task with at least one candidate node. (With overlapping
-\* rules the code as found keeps calling the replicator with an EMPTY candidate list: a holder remembered from
-\* an earlier rule does not lower the shortage of a later rule - a phantom shortage that copies nothing.)
-Replicates(d) == \E k \in 1..Len(d.tasks) : Len(d.tasks[k].nodes) > 0
-Quiet(hs) == \A n \in hs : LET d == Decide27(n, hs, {}, {}) IN ~Replicates(d) /\ d.del = "none"
-NoTasks(hs) == \A n \in hs : ~Replicates(Decide27(n, hs, {}, {}))
-b\* a check "replicates" when it hands the replicator a task with at least one candidate node. (With overlapping
-\* rules the code as found keeps calling the replicator with an EMPTY candidate list: a holder remembered from
-\* an earlier rule does not lower the shortage of a later rule - a phantom shortage that copies nothing.)
-Replicates(d) == \E k \in 1..Len(d.tasks) : Len(d.tasks[k].nodes) > 0
-Quiet(hs) == \A n \in hs : LET d == Decide27(n, hs, {}, {}) IN ~Replicates(d) /\ d.del = "none"
-NoTasks(hs) == \A n \in hs : ~Replicates(Decide27(n, hs, {}, {}))
-s\* a check "replicates" when it hands the replicator a task with at least one candidate node. (With overlapping
-\* rules the code as found keeps calling the replicator with an EMPTY candidate list: a holder remembered from
-\* an earlier rule does not lower the shortage of a later rule - a phantom shortage that copies nothing.)
-Replicates(d) == \E k \in 1..Len(d.tasks) : Len(d.tasks[k].nodes) > 0
-Quiet(hs) == \A n \in hs : LET d == Decide27(n, hs, {}, {}) IN ~Replicates(d) /\ d.del = "none"
-NoTasks(hs) == \A n \in hs : ~Replicates(Decide27(n, hs, {}, {}))
-e\* a check "replicates" when it hands the replicator a task with at least one candidate node. (With overlapping
-\* rules the code as found keeps calling the replicator with an EMPTY candidate list: a holder remembered from
-\* an earlier rule does not lower the shortage of a later rule - a phantom shortage that copies nothing.)
-Replicates(d) == \E k \in 1..Len(d.tasks) : Len(d.tasks[k].nodes) > 0
-Quiet(hs) == \A n \in hs : LET d == Decide27(n, hs, {}, {}) IN ~Replicates(d) /\ d.del = "none"
-NoTasks(hs) == \A n \in hs : ~Replicates(Decide27(n, hs, {}, {}))
-t\* a check "replicates" when it hands the replicator a task with at least one candidate node. (With overlapping
-\* rules the code as found keeps calling the replicator with an EMPTY candidate list: a holder remembered from
-\* an earlier rule does not lower the shortage of a later rule - a phantom shortage that copies nothing.)
-Replicates(d) == \E k \in 1..Len(d.tasks) : Len(d.tasks[k].nodes) > 0
-Quiet(hs) == \A n \in hs : LET d == Decide27(n, hs, {}, {}) IN ~Replicates(d) /\ d.del = "none"
-NoTasks(hs) == \A n \in hs : ~Replicates(Decide27(n, hs, {}, {}))
-e\* a check "replicates" when it hands the replicator a task with at least one candidate node. (With overlapping
-\* rules the code as found keeps calling the replicator with an EMPTY candidate list: a holder remembered from
-\* an earlier rule does not lower the shortage of a later rule - a phantom shortage that copies nothing.)
-Replicates(d) == \E k \in 1..Len(d.tasks) : Len(d.tasks[k].nodes) > 0
-Quiet(hs) == \A n \in hs : LET d == Decide27(n, hs, {}, {}) IN ~Replicates(d) /\ d.del = "none"
-NoTasks(hs) == \A n \in hs : ~Replicates(Decide27(n, hs, {}, {}))
-q\* a check "replicates" when it hands the replicator a task with at least one candidate node. (With overlapping
-\* rules the code as found keeps calling the replicator with an EMPTY candidate list: a holder remembered from
-\* an earlier rule does not lower the shortage of a later rule - a phantom shortage that copies nothing.)
-Replicates(d) == \E k \in 1..Len(d.tasks) : Len(d.tasks[k].nodes) > 0
-Quiet(hs) == \A n \in hs : LET d == Decide27(n, hs, {}, {}) IN ~Replicates(d) /\ d.del = "none"
-NoTasks(hs) == \A n \in hs : ~Replicates(Decide27(n, hs, {}, {}))
- \* a check "replicates" when it hands the replicator a task with at least one candidate node. (With overlapping
-\* rules the code as found keeps calling the replicator with an EMPTY candidate list: a holder remembered from
-\* an earlier rule does not lower the shortage of a later rule - a phantom shortage that copies nothing.)
-Replicates(d) == \E k \in 1..Len(d.tasks) : Len(d.tasks[k].nodes) > 0
-Quiet(hs) == \A n \in hs : LET d == Decide27(n, hs, {}, {}) IN ~Replicates(d) /\ d.del = "none"
-NoTasks(hs) == \A n \in hs : ~Replicates(Decide27(n, hs, {}, {}))
-r\* a check "replicates" when it hands the replicator a task with at least one candidate node. (With overlapping
-\* rules the code as found keeps calling the replicator with an EMPTY candidate list: a holder remembered from
-\* an earlier rule does not lower the shortage of a later rule - a phantom shortage that copies nothing.)
-Replicates(d) == \E k \in 1..Len(d.tasks) : Len(d.tasks[k].nodes) > 0
-Quiet(hs) == \A n \in hs : LET d == Decide27(n, hs, {}, {}) IN ~Replicates(d) /\ d.del = "none"
-NoTasks(hs) == \A n \in hs : ~Replicates(Decide27(n, hs, {}, {}))
-a\* a check "replicates" when it hands the replicator a task with at least one candidate node. (With overlapping
-\* rules the code as found keeps calling the replicator with an EMPTY candidate list: a holder remembered from
-\* an earlier rule does not lower the shortage of a later rule - a phantom shortage that copies nothing.)
-Replicates(d) == \E k \in 1..Len(d.tasks) : Len(d.tasks[k].nodes) > 0
-Quiet(hs) == \A n \in hs : LET d == Decide27(n, hs, {}, {}) IN ~Replicates(d) /\ d.del = "none"
-NoTasks(hs) == \A n \in hs : ~Replicates(Decide27(n, hs, {}, {}))
-n\* a check "replicates" when it hands the replicator a task with at least one candidate node. (With overlapping
-\* rules the code as found keeps calling the replicator with an EMPTY candidate list: a holder remembered from
-\* an earlier rule does not lower the shortage of a later rule - a phantom shortage that copies nothing.)
-Replicates(d) == \E k \in 1..Len(d.tasks) : Len(d.tasks[k].nodes) > 0
-Quiet(hs) == \A n \in hs : LET d == Decide27(n, hs, {}, {}) IN ~Replicates(d) /\ d.del = "none"
-NoTasks(hs) == \A n \in hs : ~Replicates(Decide27(n, hs, {}, {}))
-1\* a check "replicates" when it hands the replicator a task with at least one candidate node. (With overlapping
-\* rules the code as found keeps calling the replicator with an EMPTY candidate list: a holder remembered from
-\* an earlier rule does not lower the shortage of a later rule - a phantom shortage that copies nothing.)
-Replicates(d) == \E k \in 1..Len(d.tasks) : Len(d.tasks[k].nodes) > 0
-Quiet(hs) == \A n \in hs : LET d == Decide27(n, hs, {}, {}) IN ~Replicates(d) /\ d.del = "none"
-NoTasks(hs) == \A n \in hs : ~Replicates(Decide27(n, hs, {}, {}))
- \* a check "replicates" when it hands the replicator a task with at least one candidate node. (With overlapping
-\* rules the code as found keeps calling the replicator with an EMPTY candidate list: a holder remembered from
-\* an earlier rule does not lower the shortage of a later rule - a phantom shortage that copies nothing.)
-Replicates(d) == \E k \in 1..Len(d.tasks) : Len(d.tasks[k].nodes) > 0
-Quiet(hs) == \A n \in hs : LET d == Decide27(n, hs, {}, {}) IN ~Replicates(d) /\ d.del = "none"
-NoTasks(hs) == \A n \in hs : ~Replicates(Decide27(n, hs, {}, {}))
-T\* a check "replicates" when it hands the replicator a task with at least one candidate node. (With overlapping
-\* rules the code as found keeps calling the replicator with an EMPTY candidate list: a holder remembered from
-\* an earlier rule does not lower the shortage of a later rule - a phantom shortage that copies nothing.)
-Replicates(d) == \E k \in 1..Len(d.tasks) : Len(d.tasks[k].nodes) > 0
-Quiet(hs) == \A n \in hs : LET d == Decide27(n, hs, {}, {}) IN ~Replicates(d) /\ d.del = "none"
-NoTasks(hs) == \A n \in hs : ~Replicates(Decide27(n, hs, {}, {}))
-H\* a check "replicates" when it hands the replicator a task with at least one candidate node. (With overlapping
-\* rules the code as found keeps calling the replicator with an EMPTY candidate list: a holder remembered from
-\* an earlier rule does not lower the shortage of a later rule - a phantom shortage that copies nothing.)
-Replicates(d) == \E k \in 1..Len(d.tasks) : Len(d.tasks[k].nodes) > 0
-Quiet(hs) == \A n \in hs : LET d == Decide27(n, hs, {}, {}) IN ~Replicates(d) /\ d.del = "none"
-NoTasks(hs) == \A n \in hs : ~Replicates(Decide27(n, hs, {}, {}))
-E\* a check "replicates" when it hands the replicator a task with at least one candidate node. (With overlapping
-\* rules the code as found keeps calling the replicator with an EMPTY candidate list: a holder remembered from
-\* an earlier rule does not lower the shortage of a later rule - a phantom shortage that copies nothing.)
-Replicates(d) == \E k \in 1..Len(d.tasks) : Len(d.tasks[k].nodes) > 0
-Quiet(hs) == \A n \in hs : LET d == Decide27(n, hs, {}, {}) IN ~Replicates(d) /\ d.del = "none"
-NoTasks(hs) == \A n \in hs : ~Replicates(Decide27(n, hs, {}, {}))
-N\* a check "replicates" when it hands the replicator a task with at least one candidate node. (With overlapping
-\* rules the code as found keeps calling the replicator with an EMPTY candidate list: a holder remembered from
-\* an earlier rule does not lower the shortage of a later rule - a phantom shortage that copies nothing.)
-Replicates(d) == \E k \in 1..Len(d.tasks) : Len(d.tasks[k].nodes) > 0
-Quiet(hs) == \A n \in hs : LET d == Decide27(n, hs, {}, {}) IN ~Replicates(d) /\ d.del = "none"
-NoTasks(hs) == \A n \in hs : ~Replicates(Decide27(n, hs, {}, {}))
- \* a check "replicates" when it hands the replicator a task with at least one candidate node. (With overlapping
-\* rules the code as found keeps calling the replicator with an EMPTY candidate list: a holder remembered from
-\* an earlier rule does not lower the shortage of a later rule - a phantom shortage that copies nothing.)
-Replicates(d) == \E k \in 1..Len(d.tasks) : Len(d.tasks[k].nodes) > 0
-Quiet(hs) == \A n \in hs : LET d == Decide27(n, hs, {}, {}) IN ~Replicates(d) /\ d.del = "none"
-NoTasks(hs) == \A n \in hs : ~Replicates(Decide27(n, hs, {}, {}))
-r\* a check "replicates" when it hands the replicator a task with at least one candidate node. (With overlapping
-\* rules the code as found keeps calling the replicator with an EMPTY candidate list: a holder remembered from
-\* an earlier rule does not lower the shortage of a later rule - a phantom shortage that copies nothing.)
-Replicates(d) == \E k \in 1..Len(d.tasks) : Len(d.tasks[k].nodes) > 0
-Quiet(hs) == \A n \in hs : LET d == Decide27(n, hs, {}, {}) IN ~Replicates(d) /\ d.del = "none"
-NoTasks(hs) == \A n \in hs : ~Replicates(Decide27(n, hs, {}, {}))
-a\* a check "replicates" when it hands the replicator a task with at least one candidate node. (With overlapping
-\* rules the code as found keeps calling the replicator with an EMPTY candidate list: a holder remembered from
-\* an earlier rule does not lower the shortage of a later rule - a phantom shortage that copies nothing.)
-Replicates(d) == \E k \in 1..Len(d.tasks) : Len(d.tasks[k].nodes) > 0
-Quiet(hs) == \A n \in hs : LET d == Decide27(n, hs, {}, {}) IN ~Replicates(d) /\ d.del = "none"
-NoTasks(hs) == \A n \in hs : ~Replicates(Decide27(n, hs, {}, {}))
-n\* a check "replicates" when it hands the replicator a task with at least one candidate node. (With overlapping
-\* rules the code as found keeps calling the replicator with an EMPTY candidate list: a holder remembered from
-\* an earlier rule does not lower the shortage of a later rule - a phantom shortage that copies nothing.)
-Replicates(d) == \E k \in 1..Len(d.tasks) : Len(d.tasks[k].nodes) > 0
-Quiet(hs) == \A n \in hs : LET d == Decide27(n, hs, {}, {}) IN ~Replicates(d) /\ d.del = "none"
-NoTasks(hs) == \A n \in hs : ~Replicates(Decide27(n, hs, {}, {}))
-'\* a check "replicates" when it hands the replicator a task with at least one candidate node. (With overlapping
-\* rules the code as found keeps calling the replicator with an EMPTY candidate list: a holder remembered from
-\* an earlier rule does not lower the shortage of a later rule - a phantom shortage that copies nothing.)
-Replicates(d) == \E k \in 1..Len(d.tasks) : Len(d.tasks[k].nodes) > 0
-Quiet(hs) == \A n \in hs : LET d == Decide27(n, hs, {}, {}) IN ~Replicates(d) /\ d.del = "none"
-NoTasks(hs) == \A n \in hs : ~Replicates(Decide27(n, hs, {}, {}))
- \* a check "replicates" when it hands the replicator a task with at least one candidate node. (With overlapping
-\* rules the code as found keeps calling the replicator with an EMPTY candidate list: a holder remembered from
-\* an earlier rule does not lower the shortage of a later rule - a phantom shortage that copies nothing.)
-Replicates(d) == \E k \in 1..Len(d.tasks) : Len(d.tasks[k].nodes) > 0
-Quiet(hs) == \A n \in hs : LET d == Decide27(n, hs, {}, {}) IN ~Replicates(d) /\ d.del = "none"
-NoTasks(hs) == \A n \in hs : ~Replicates(Decide27(n, hs, {}, {}))
-=\* a check "replicates" when it hands the replicator a task with at least one candidate node. (With overlapping
-\* rules the code as found keeps calling the replicator with an EMPTY candidate list: a holder remembered from
-\* an earlier rule does not lower the shortage of a later rule - a phantom shortage that copies nothing.)
-Replicates(d) == \E k \in 1..Len(d.tasks) : Len(d.tasks[k].nodes) > 0
-Quiet(hs) == \A n \in hs : LET d == Decide27(n, hs, {}, {}) IN ~Replicates(d) /\ d.del = "none"
-NoTasks(hs) == \A n \in hs : ~Replicates(Decide27(n, hs, {}, {}))
- \* a check "replicates" when it hands the replicator a task with at least one candidate node. (With overlapping
-\* rules the code as found keeps calling the replicator with an EMPTY candidate list: a holder remembered from
-\* an earlier rule does not lower the shortage of a later rule - a phantom shortage that copies nothing.)
-Replicates(d) == \E k \in 1..Len(d.tasks) : Len(d.tasks[k].nodes) > 0
-Quiet(hs) == \A n \in hs : LET d == Decide27(n, hs, {}, {}) IN ~Replicates(d) /\ d.del = "none"
-NoTasks(hs) == \A n \in hs : ~Replicates(Decide27(n, hs, {}, {}))
-{\* a check "replicates" when it hands the replicator a task with at least one candidate node. (With overlapping
-\* rules the code as found keeps calling the replicator with an EMPTY candidate list: a holder remembered from
-\* an earlier rule does not lower the shortage of a later rule - a phantom shortage that copies nothing.)
-Replicates(d) == \E k \in 1..Len(d.tasks) : Len(d.tasks[k].nodes) > 0
-Quiet(hs) == \A n \in hs : LET d == Decide27(n, hs, {}, {}) IN ~Replicates(d) /\ d.del = "none"
-NoTasks(hs) == \A n \in hs : ~Replicates(Decide27(n, hs, {}, {}))
-}\* a check "replicates" when it hands the replicator a task with at least one candidate node. (With overlapping
-\* rules the code as found keeps calling the replicator with an EMPTY candidate list: a holder remembered from
-\* an earlier rule does not lower the shortage of a later rule - a phantom shortage that copies nothing.)
-Replicates(d) == \E k \in 1..Len(d.tasks) : Len(d.tasks[k].nodes) > 0
-Quiet(hs) == \A n \in hs : LET d == Decide27(n, hs, {}, {}) IN ~Replicates(d) /\ d.del = "none"
-NoTasks(hs) == \A n \in hs : ~Replicates(Decide27(n, hs, {}, {}))
- \* a check "replicates" when it hands the replicator a task with at least one candidate node. (With overlapping
-\* rules the code as found keeps calling the replicator with an EMPTY candidate list: a holder remembered from
-\* an earlier rule does not lower the shortage of a later rule - a phantom shortage that copies nothing.)
-Replicates(d) == \E k \in 1..Len(d.tasks) : Len(d.tasks[k].nodes) > 0
-Quiet(hs) == \A n \in hs : LET d == Decide27(n, hs, {}, {}) IN ~Replicates(d) /\ d.del = "none"
-NoTasks(hs) == \A n \in hs : ~Replicates(Decide27(n, hs, {}, {}))
-/\* a check "replicates" when it hands the replicator a task with at least one candidate node. (With overlapping
-\* rules the code as found keeps calling the replicator with an EMPTY candidate list: a holder remembered from
-\* an earlier rule does not lower the shortage of a later rule - a phantom shortage that copies nothing.)
-Replicates(d) == \E k \in 1..Len(d.tasks) : Len(d.tasks[k].nodes) > 0
-Quiet(hs) == \A n \in hs : LET d == Decide27(n, hs, {}, {}) IN ~Replicates(d) /\ d.del = "none"
-NoTasks(hs) == \A n \in hs : ~Replicates(Decide27(n, hs, {}, {}))
-\\* a check "replicates" when it hands the replicator a task with at least one candidate node. (With overlapping
-\* rules the code as found keeps calling the replicator with an EMPTY candidate list: a holder remembered from
-\* an earlier rule does not lower the shortage of a later rule - a phantom shortage that copies nothing.)
-Replicates(d) == \E k \in 1..Len(d.tasks) : Len(d.tasks[k].nodes) > 0
-Quiet(hs) == \A n \in hs : LET d == Decide27(n, hs, {}, {}) IN ~Replicates(d) /\ d.del = "none"
-NoTasks(hs) == \A n \in hs : ~Replicates(Decide27(n, hs, {}, {}))
- \* a check "replicates" when it hands the replicator a task with at least one candidate node. (With overlapping
-\* rules the code as found keeps calling the replicator with an EMPTY candidate list: a holder remembered from
-\* an earlier rule does not lower the shortage of a later rule - a phantom shortage that copies nothing.)
-Replicates(d) == \E k \in 1..Len(d.tasks) : Len(d.tasks[k].nodes) > 0
-Quiet(hs) == \A n \in hs : LET d == Decide27(n, hs, {}, {}) IN ~Replicates(d) /\ d.del = "none"
-NoTasks(hs) == \A n \in hs : ~Replicates(Decide27(n, hs, {}, {}))
-r\* a check "replicates" when it hands the replicator a task with at least one candidate node. (With overlapping
-\* rules the code as found keeps calling the replicator with an EMPTY candidate list: a holder remembered from
-\* an earlier rule does not lower the shortage of a later rule - a phantom shortage that copies nothing.)
-Replicates(d) == \E k \in 1..Len(d.tasks) : Len(d.tasks[k].nodes) > 0
-Quiet(hs) == \A n \in hs : LET d == Decide27(n, hs, {}, {}) IN ~Replicates(d) /\ d.del = "none"
-NoTasks(hs) == \A n \in hs : ~Replicates(Decide27(n, hs, {}, {}))
-o\* a check "replicates" when it hands the replicator a task with at least one candidate node. (With overlapping
-\* rules the code as found keeps calling the replicator with an EMPTY candidate list: a holder remembered from
-\* an earlier rule does not lower the shortage of a later rule - a phantom shortage that copies nothing.)
-Replicates(d) == \E k \in 1..Len(d.tasks) : Len(d.tasks[k].nodes) > 0
-Quiet(hs) == \A n \in hs : LET d == Decide27(n, hs, {}, {}) IN ~Replicates(d) /\ d.del = "none"
-NoTasks(hs) == \A n \in hs : ~Replicates(Decide27(n, hs, {}, {}))
-u\* a check "replicates" when it hands the replicator a task with at least one candidate node. (With overlapping
-\* rules the code as found keeps calling the replicator with an EMPTY candidate list: a holder remembered from
-\* an earlier rule does not lower the shortage of a later rule - a phantom shortage that copies nothing.)
-Replicates(d) == \E k \in 1..Len(d.tasks) : Len(d.tasks[k].nodes) > 0
-Quiet(hs) == \A n \in hs : LET d == Decide27(n, hs, {}, {}) IN ~Replicates(d) /\ d.del = "none"
-NoTasks(hs) == \A n \in hs : ~Replicates(Decide27(n, hs, {}, {}))
-n\* a check "replicates" when it hands the replicator a task with at least one candidate node. (With overlapping
-\* rules the code as found keeps calling the replicator with an EMPTY candidate list: a holder remembered from
-\* an earlier rule does not lower the shortage of a later rule - a phantom shortage that copies nothing.)
-Replicates(d) == \E k \in 1..Len(d.tasks) : Len(d.tasks[k].nodes) > 0
-Quiet(hs) == \A n \in hs : LET d == Decide27(n, hs, {}, {}) IN ~Replicates(d) /\ d.del = "none"
-NoTasks(hs) == \A n \in hs : ~Replicates(Decide27(n, hs, {}, {}))
-d\* a check "replicates" when it hands the replicator a task with at least one candidate node. (With overlapping
-\* rules the code as found keeps calling the replicator with an EMPTY candidate list: a holder remembered from
-\* an earlier rule does not lower the shortage of a later rule - a phantom shortage that copies nothing.)
-Replicates(d) == \E k \in 1..Len(d.tasks) : Len(d.tasks[k].nodes) > 0
-Quiet(hs) == \A n \in hs : LET d == Decide27(n, hs, {}, {}) IN ~Replicates(d) /\ d.del = "none"
-NoTasks(hs) == \A n \in hs : ~Replicates(Decide27(n, hs, {}, {}))
-'\* a check "replicates" when it hands the replicator a task with at least one candidate node. (With overlapping
-\* rules the code as found keeps calling the replicator with an EMPTY candidate list: a holder remembered from
-\* an earlier rule does not lower the shortage of a later rule - a phantom shortage that copies nothing.)
-Replicates(d) == \E k \in 1..Len(d.tasks) : Len(d.tasks[k].nodes) > 0
-Quiet(hs) == \A n \in hs : LET d == Decide27(n, hs, {}, {}) IN ~Replicates(d) /\ d.del = "none"
-NoTasks(hs) == \A n \in hs : ~Replicates(Decide27(n, hs, {}, {}))
- \* a check "replicates" when it hands the replicator a task with at least one candidate node. (With overlapping
-\* rules the code as found keeps calling the replicator with an EMPTY candidate list: a holder remembered from
-\* an earlier rule does not lower the shortage of a later rule - a phantom shortage that copies nothing.)
-Replicates(d) == \E k \in 1..Len(d.tasks) : Len(d.tasks[k].nodes) > 0
-Quiet(hs) == \A n \in hs : LET d == Decide27(n, hs, {}, {}) IN ~Replicates(d) /\ d.del = "none"
-NoTasks(hs) == \A n \in hs : ~Replicates(Decide27(n, hs, {}, {}))
-=\* a check "replicates" when it hands the replicator a task with at least one candidate node. (With overlapping
-\* rules the code as found keeps calling the replicator with an EMPTY candidate list: a holder remembered from
-\* an earlier rule does not lower the shortage of a later rule - a phantom shortage that copies nothing.)
-Replicates(d) == \E k \in 1..Len(d.tasks) : Len(d.tasks[k].nodes) > 0
-Quiet(hs) == \A n \in hs : LET d == Decide27(n, hs, {}, {}) IN ~Replicates(d) /\ d.del = "none"
-NoTasks(hs) == \A n \in hs : ~Replicates(Decide27(n, hs, {}, {}))
- \* a check "replicates" when it hands the replicator a task with at least one candidate node. (With overlapping
-\* rules the code as found keeps calling the replicator with an EMPTY candidate list: a holder remembered from
-\* an earlier rule does not lower the shortage of a later rule - a phantom shortage that copies nothing.)
-Replicates(d) == \E k \in 1..Len(d.tasks) : Len(d.tasks[k].nodes) > 0
-Quiet(hs) == \A n \in hs : LET d == Decide27(n, hs, {}, {}) IN ~Replicates(d) /\ d.del = "none"
-NoTasks(hs) == \A n \in hs : ~Replicates(Decide27(n, hs, {}, {}))
-r\* a check "replicates" when it hands the replicator a task with at least one candidate node. (With overlapping
-\* rules the code as found keeps calling the replicator with an EMPTY candidate list: a holder remembered from
-\* an earlier rule does not lower the shortage of a later rule - a phantom shortage that copies nothing.)
-Replicates(d) == \E k \in 1..Len(d.tasks) : Len(d.tasks[k].nodes) > 0
-Quiet(hs) == \A n \in hs : LET d == Decide27(n, hs, {}, {}) IN ~Replicates(d) /\ d.del = "none"
-NoTasks(hs) == \A n \in hs : ~Replicates(Decide27(n, hs, {}, {}))
-o\* a check "replicates" when it hands the replicator a task with at least one candidate node. (With overlapping
-\* rules the code as found keeps calling the replicator with an EMPTY candidate list: a holder remembered from
-\* an earlier rule does not lower the shortage of a later rule - a phantom shortage that copies nothing.)
-Replicates(d) == \E k \in 1..Len(d.tasks) : Len(d.tasks[k].nodes) > 0
-Quiet(hs) == \A n \in hs : LET d == Decide27(n, hs, {}, {}) IN ~Replicates(d) /\ d.del = "none"
-NoTasks(hs) == \A n \in hs : ~Replicates(Decide27(n, hs, {}, {}))
-u\* a check "replicates" when it hands the replicator a task with at least one candidate node. (With overlapping
-\* rules the code as found keeps calling the replicator with an EMPTY candidate list: a holder remembered from
-\* an earlier rule does not lower the shortage of a later rule - a phantom shortage that copies nothing.)
-Replicates(d) == \E k \in 1..Len(d.tasks) : Len(d.tasks[k].nodes) > 0
-Quiet(hs) == \A n \in hs : LET d == Decide27(n, hs, {}, {}) IN ~Replicates(d) /\ d.del = "none"
-NoTasks(hs) == \A n \in hs : ~Replicates(Decide27(n, hs, {}, {}))
-n\* a check "replicates" when it hands the replicator a task with at least one candidate node. (With overlapping
-\* rules the code as found keeps calling the replicator with an EMPTY candidate list: a holder remembered from
-\* an earlier rule does not lower the shortage of a later rule - a phantom shortage that copies nothing.)
-Replicates(d) == \E k \in 1..Len(d.tasks) : Len(d.tasks[k].nodes) > 0
-Quiet(hs) == \A n \in hs : LET d == Decide27(n, hs, {}, {}) IN ~Replicates(d) /\ d.del = "none"
-NoTasks(hs) == \A n \in hs : ~Replicates(Decide27(n, hs, {}, {}))
-d\* a check "replicates" when it hands the replicator a task with at least one candidate node. (With overlapping
-\* rules the code as found keeps calling the replicator with an EMPTY candidate list: a holder remembered from
-\* an earlier rule does not lower the shortage of a later rule - a phantom shortage that copies nothing.)
-Replicates(d) == \E k \in 1..Len(d.tasks) : Len(d.tasks[k].nodes) > 0
-Quiet(hs) == \A n \in hs : LET d == Decide27(n, hs, {}, {}) IN ~Replicates(d) /\ d.del = "none"
-NoTasks(hs) == \A n \in hs : ~Replicates(Decide27(n, hs, {}, {}))
- \* a check "replicates" when it hands the replicator a task with at least one candidate node. (With overlapping
-\* rules the code as found keeps calling the replicator with an EMPTY candidate list: a holder remembered from
-\* an earlier rule does not lower the shortage of a later rule - a phantom shortage that copies nothing.)
-Replicates(d) == \E k \in 1..Len(d.tasks) : Len(d.tasks[k].nodes) > 0
-Quiet(hs) == \A n \in hs : LET d == Decide27(n, hs, {}, {}) IN ~Replicates(d) /\ d.del = "none"
-NoTasks(hs) == \A n \in hs : ~Replicates(Decide27(n, hs, {}, {}))
-+\* a check "replicates" when it hands the replicator a task with at least one candidate node. (With overlapping
-\* rules the code as found keeps calling the replicator with an EMPTY candidate list: a holder remembered from
-\* an earlier rule does not lower the shortage of a later rule - a phantom shortage that copies nothing.)
-Replicates(d) == \E k \in 1..Len(d.tasks) : Len(d.tasks[k].nodes) > 0
-Quiet(hs) == \A n \in hs : LET d == Decide27(n, hs, {}, {}) IN ~Replicates(d) /\ d.del = "none"
-NoTasks(hs) == \A n \in hs : ~Replicates(Decide27(n, hs, {}, {}))
- \* a check "replicates" when it hands the replicator a task with at least one candidate node. (With overlapping
-\* rules the code as found keeps calling the replicator with an EMPTY candidate list: a holder remembered from
-\* an earlier rule does not lower the shortage of a later rule - a phantom shortage that copies nothing.)
-Replicates(d) == \E k \in 1..Len(d.tasks) : Len(d.tasks[k].nodes) > 0
-Quiet(hs) == \A n \in hs : LET d == Decide27(n, hs, {}, {}) IN ~Replicates(d) /\ d.del = "none"
-NoTasks(hs) == \A n \in hs : ~Replicates(Decide27(n, hs, {}, {}))
-1\* a check "replicates" when it hands the replicator a task with at least one candidate node. (With overlapping
-\* rules the code as found keeps calling the replicator with an EMPTY candidate list: a holder remembered from
-\* an earlier rule does not lower the shortage of a later rule - a phantom shortage that copies nothing.)
-Replicates(d) == \E k \in 1..Len(d.tasks) : Len(d.tasks[k].nodes) > 0
-Quiet(hs) == \A n \in hs : LET d == Decide27(n, hs, {}, {}) IN ~Replicates(d) /\ d.del = "none"
-NoTasks(hs) == \A n \in hs : ~Replicates(Decide27(n, hs, {}, {}))
-
-\* a check "replicates" when it hands the replicator a task with at least one candidate node. (With overlapping
-\* rules the code as found keeps calling the replicator with an EMPTY candidate list: a holder remembered from
-\* an earlier rule does not lower the shortage of a later rule - a phantom shortage that copies nothing.)
-Replicates(d) == \E k \in 1..Len(d.tasks) : Len(d.tasks[k].nodes) > 0
-Quiet(hs) == \A n \in hs : LET d == Decide27(n, hs, {}, {}) IN ~Replicates(d) /\ d.del = "none"
-NoTasks(hs) == \A n \in hs : ~Replicates(Decide27(n, hs, {}, {}))
- \* a check "replicates" when it hands the replicator a task with at least one candidate node. (With overlapping
-\* rules the code as found keeps calling the replicator with an EMPTY candidate list: a holder remembered from
-\* an earlier rule does not lower the shortage of a later rule - a phantom shortage that copies nothing.)
-Replicates(d) == \E k \in 1..Len(d.tasks) : Len(d.tasks[k].nodes) > 0
-Quiet(hs) == \A n \in hs : LET d == Decide27(n, hs, {}, {}) IN ~Replicates(d) /\ d.del = "none"
-NoTasks(hs) == \A n \in hs : ~Replicates(Decide27(n, hs, {}, {}))
- \* a check "replicates" when it hands the replicator a task with at least one candidate node. (With overlapping
-\* rules the code as found keeps calling the replicator with an EMPTY candidate list: a holder remembered from
-\* an earlier rule does not lower the shortage of a later rule - a phantom shortage that copies nothing.)
-Replicates(d) == \E k \in 1..Len(d.tasks) : Len(d.tasks[k].nodes) > 0
-Quiet(hs) == \A n \in hs : LET d == Decide27(n, hs, {}, {}) IN ~Replicates(d) /\ d.del = "none"
-NoTasks(hs) == \A n \in hs : ~Replicates(Decide27(n, hs, {}, {}))
- \* a check "replicates" when it hands the replicator a task with at least one candidate node. (With overlapping
-\* rules the code as found keeps calling the replicator with an EMPTY candidate list: a holder remembered from
-\* an earlier rule does not lower the shortage of a later rule - a phantom shortage that copies nothing.)
-Replicates(d) == \E k \in 1..Len(d.tasks) : Len(d.tasks[k].nodes) > 0
-Quiet(hs) == \A n \in hs : LET d == Decide27(n, hs, {}, {}) IN ~Replicates(d) /\ d.del = "none"
-NoTasks(hs) == \A n \in hs : ~Replicates(Decide27(n, hs, {}, {}))
- \* a check "replicates" when it hands the replicator a task with at least one candidate node. (With overlapping
-\* rules the code as found keeps calling the replicator with an EMPTY candidate list: a holder remembered from
-\* an earlier rule does not lower the shortage of a later rule - a phantom shortage that copies nothing.)
-Replicates(d) == \E k \in 1..Len(d.tasks) : Len(d.tasks[k].nodes) > 0
-Quiet(hs) == \A n \in hs : LET d == Decide27(n, hs, {}, {}) IN ~Replicates(d) /\ d.del = "none"
-NoTasks(hs) == \A n \in hs : ~Replicates(Decide27(n, hs, {}, {}))
- \* a check "replicates" when it hands the replicator a task with at least one candidate node. (With overlapping
-\* rules the code as found keeps calling the replicator with an EMPTY candidate list: a holder remembered from
-\* an earlier rule does not lower the shortage of a later rule - a phantom shortage that copies nothing.)
-Replicates(d) == \E k \in 1..Len(d.tasks) : Len(d.tasks[k].nodes) > 0
-Quiet(hs) == \A n \in hs : LET d == Decide27(n, hs, {}, {}) IN ~Replicates(d) /\ d.del = "none"
-NoTasks(hs) == \A n \in hs : ~Replicates(Decide27(n, hs, {}, {}))
- \* a check "replicates" when it hands the replicator a task with at least one candidate node. (With overlapping
-\* rules the code as found keeps calling the replicator with an EMPTY candidate list: a holder remembered from
-\* an earlier rule does not lower the shortage of a later rule - a phantom shortage that copies nothing.)
-Replicates(d) == \E k \in 1..Len(d.tasks) : Len(d.tasks[k].nodes) > 0
-Quiet(hs) == \A n \in hs : LET d == Decide27(n, hs, {}, {}) IN ~Replicates(d) /\ d.del = "none"
-NoTasks(hs) == \A n \in hs : ~Replicates(Decide27(n, hs, {}, {}))
- \* a check "replicates" when it hands the replicator a task with at least one candidate node. (With overlapping
-\* rules the code as found keeps calling the replicator with an EMPTY candidate list: a holder remembered from
-\* an earlier rule does not lower the shortage of a later rule - a phantom shortage that copies nothing.)
-Replicates(d) == \E k \in 1..Len(d.tasks) : Len(d.tasks[k].nodes) > 0
-Quiet(hs) == \A n \in hs : LET d == Decide27(n, hs, {}, {}) IN ~Replicates(d) /\ d.del = "none"
-NoTasks(hs) == \A n \in hs : ~Replicates(Decide27(n, hs, {}, {}))
- \* a check "replicates" when it hands the replicator a task with at least one candidate node. (With overlapping
-\* rules the code as found keeps calling the replicator with an EMPTY candidate list: a holder remembered from
-\* an earlier rule does not lower the shortage of a later rule - a phantom shortage that copies nothing.)
-Replicates(d) == \E k \in 1..Len(d.tasks) : Len(d.tasks[k].nodes) > 0
-Quiet(hs) == \A n \in hs : LET d == Decide27(n, hs, {}, {}) IN ~Replicates(d) /\ d.del = "none"
-NoTasks(hs) == \A n \in hs : ~Replicates(Decide27(n, hs, {}, {}))
- \* a check "replicates" when it hands the replicator a task with at least one candidate node. (With overlapping
-\* rules the code as found keeps calling the replicator with an EMPTY candidate list: a holder remembered from
-\* an earlier rule does not lower the shortage of a later rule - a phantom shortage that copies nothing.)
-Replicates(d) == \E k \in 1..Len(d.tasks) : Len(d.tasks[k].nodes) > 0
-Quiet(hs) == \A n \in hs : LET d == Decide27(n, hs, {}, {}) IN ~Replicates(d) /\ d.del = "none"
-NoTasks(hs) == \A n \in hs : ~Replicates(Decide27(n, hs, {}, {}))
- \* a check "replicates" when it hands the replicator a task with at least one candidate node. (With overlapping
-\* rules the code as found keeps calling the replicator with an EMPTY candidate list: a holder remembered from
-\* an earlier rule does not lower the shortage of a later rule - a phantom shortage that copies nothing.)
-Replicates(d) == \E k \in 1..Len(d.tasks) : Len(d.tasks[k].nodes) > 0
-Quiet(hs) == \A n \in hs : LET d == Decide27(n, hs, {}, {}) IN ~Replicates(d) /\ d.del = "none"
-NoTasks(hs) == \A n \in hs : ~Replicates(Decide27(n, hs, {}, {}))
- \* a check "replicates" when it hands the replicator a task with at least one candidate node. (With overlapping
-\* rules the code as found keeps calling the replicator with an EMPTY candidate list: a holder remembered from
-\* an earlier rule does not lower the shortage of a later rule - a phantom shortage that copies nothing.)
-Replicates(d) == \E k \in 1..Len(d.tasks) : Len(d.tasks[k].nodes) > 0
-Quiet(hs) == \A n \in hs : LET d == Decide27(n, hs, {}, {}) IN ~Replicates(d) /\ d.del = "none"
-NoTasks(hs) == \A n \in hs : ~Replicates(Decide27(n, hs, {}, {}))
- \* a check "replicates" when it hands the replicator a task with at least one candidate node. (With overlapping
-\* rules the code as found keeps calling the replicator with an EMPTY candidate list: a holder remembered from
-\* an earlier rule does not lower the shortage of a later rule - a phantom shortage that copies nothing.)
-Replicates(d) == \E k \in 1..Len(d.tasks) : Len(d.tasks[k].nodes) > 0
-Quiet(hs) == \A n \in hs : LET d == Decide27(n, hs, {}, {}) IN ~Replicates(d) /\ d.del = "none"
-NoTasks(hs) == \A n \in hs : ~Replicates(Decide27(n, hs, {}, {}))
- \* a check "replicates" when it hands the replicator a task with at least one candidate node. (With overlapping
-\* rules the code as found keeps calling the replicator with an EMPTY candidate list: a holder remembered from
-\* an earlier rule does not lower the shortage of a later rule - a phantom shortage that copies nothing.)
-Replicates(d) == \E k \in 1..Len(d.tasks) : Len(d.tasks[k].nodes) > 0
-Quiet(hs) == \A n \in hs : LET d == Decide27(n, hs, {}, {}) IN ~Replicates(d) /\ d.del = "none"
-NoTasks(hs) == \A n \in hs : ~Replicates(Decide27(n, hs, {}, {}))
- \* a check "replicates" when it hands the replicator a task with at least one candidate node. (With overlapping
-\* rules the code as found keeps calling the replicator with an EMPTY candidate list: a holder remembered from
-\* an earlier rule does not lower the shortage of a later rule - a phantom shortage that copies nothing.)
-Replicates(d) == \E k \in 1..Len(d.tasks) : Len(d.tasks[k].nodes) > 0
-Quiet(hs) == \A n \in hs : LET d == Decide27(n, hs, {}, {}) IN ~Replicates(d) /\ d.del = "none"
-NoTasks(hs) == \A n \in hs : ~Replicates(Decide27(n, hs, {}, {}))
- \* a check "replicates" when it hands the replicator a task with at least one candidate node. (With overlapping
-\* rules the code as found keeps calling the replicator with an EMPTY candidate list: a holder remembered from
-\* an earlier rule does not lower the shortage of a later rule - a phantom shortage that copies nothing.)
-Replicates(d) == \E k \in 1..Len(d.tasks) : Len(d.tasks[k].nodes) > 0
-Quiet(hs) == \A n \in hs : LET d == Decide27(n, hs, {}, {}) IN ~Replicates(d) /\ d.del = "none"
-NoTasks(hs) == \A n \in hs : ~Replicates(Decide27(n, hs, {}, {}))
- \* a check "replicates" when it hands the replicator a task with at least one candidate node. (With overlapping
-\* rules the code as found keeps calling the replicator with an EMPTY candidate list: a holder remembered from
-\* an earlier rule does not lower the shortage of a later rule - a phantom shortage that copies nothing.)
-Replicates(d) == \E k \in 1..Len(d.tasks) : Len(d.tasks[k].nodes) > 0
-Quiet(hs) == \A n \in hs : LET d == Decide27(n, hs, {}, {}) IN ~Replicates(d) /\ d.del = "none"
-NoTasks(hs) == \A n \in hs : ~Replicates(Decide27(n, hs, {}, {}))
- \* a check "replicates" when it hands the replicator a task with at least one candidate node. (With overlapping
-\* rules the code as found keeps calling the replicator with an EMPTY candidate list: a holder remembered from
-\* an earlier rule does not lower the shortage of a later rule - a phantom shortage that copies nothing.)
-Replicates(d) == \E k \in 1..Len(d.tasks) : Len(d.tasks[k].nodes) > 0
-Quiet(hs) == \A n \in hs : LET d == Decide27(n, hs, {}, {}) IN ~Replicates(d) /\ d.del = "none"
-NoTasks(hs) == \A n \in hs : ~Replicates(Decide27(n, hs, {}, {}))
- \* a check "replicates" when it hands the replicator a task with at least one candidate node. (With overlapping
-\* rules the code as found keeps calling the replicator with an EMPTY candidate list: a holder remembered from
-\* an earlier rule does not lower the shortage of a later rule - a phantom shortage that copies nothing.)
-Replicates(d) == \E k \in 1..Len(d.tasks) : Len(d.tasks[k].nodes) > 0
-Quiet(hs) == \A n \in hs : LET d == Decide27(n, hs, {}, {}) IN ~Replicates(d) /\ d.del = "none"
-NoTasks(hs) == \A n \in hs : ~Replicates(Decide27(n, hs, {}, {}))
- \* a check "replicates" when it hands the replicator a task with at least one candidate node. (With overlapping
-\* rules the code as found keeps calling the replicator with an EMPTY candidate list: a holder remembered from
-\* an earlier rule does not lower the shortage of a later rule - a phantom shortage that copies nothing.)
-Replicates(d) == \E k \in 1..Len(d.tasks) : Len(d.tasks[k].nodes) > 0
-Quiet(hs) == \A n \in hs : LET d == Decide27(n, hs, {}, {}) IN ~Replicates(d) /\ d.del = "none"
-NoTasks(hs) == \A n \in hs : ~Replicates(Decide27(n, hs, {}, {}))
- \* a check "replicates" when it hands the replicator a task with at least one candidate node. (With overlapping
-\* rules the code as found keeps calling the replicator with an EMPTY candidate list: a holder remembered from
-\* an earlier rule does not lower the shortage of a later rule - a phantom shortage that copies nothing.)
-Replicates(d) == \E k \in 1..Len(d.tasks) : Len(d.tasks[k].nodes) > 0
-Quiet(hs) == \A n \in hs : LET d == Decide27(n, hs, {}, {}) IN ~Replicates(d) /\ d.del = "none"
-NoTasks(hs) == \A n \in hs : ~Replicates(Decide27(n, hs, {}, {}))
- \* a check "replicates" when it hands the replicator a task with at least one candidate node. (With overlapping
-\* rules the code as found keeps calling the replicator with an EMPTY candidate list: a holder remembered from
-\* an earlier rule does not lower the shortage of a later rule - a phantom shortage that copies nothing.)
-Replicates(d) == \E k \in 1..Len(d.tasks) : Len(d.tasks[k].nodes) > 0
-Quiet(hs) == \A n \in hs : LET d == Decide27(n, hs, {}, {}) IN ~Replicates(d) /\ d.del = "none"
-NoTasks(hs) == \A n \in hs : ~Replicates(Decide27(n, hs, {}, {}))
- \* a check "replicates" when it hands the replicator a task with at least one candidate node. (With overlapping
-\* rules the code as found keeps calling the replicator with an EMPTY candidate list: a holder remembered from
-\* an earlier rule does not lower the shortage of a later rule - a phantom shortage that copies nothing.)
-Replicates(d) == \E k \in 1..Len(d.tasks) : Len(d.tasks[k].nodes) > 0
-Quiet(hs) == \A n \in hs : LET d == Decide27(n, hs, {}, {}) IN ~Replicates(d) /\ d.del = "none"
-NoTasks(hs) == \A n \in hs : ~Replicates(Decide27(n, hs, {}, {}))
- \* a check "replicates" when it hands the replicator a task with at least one candidate node. (With overlapping
-\* rules the code as found keeps calling the replicator with an EMPTY candidate list: a holder remembered from
-\* an earlier rule does not lower the shortage of a later rule - a phantom shortage that copies nothing.)
-Replicates(d) == \E k \in 1..Len(d.tasks) : Len(d.tasks[k].nodes) > 0
-Quiet(hs) == \A n \in hs : LET d == Decide27(n, hs, {}, {}) IN ~Replicates(d) /\ d.del = "none"
-NoTasks(hs) == \A n \in hs : ~Replicates(Decide27(n, hs, {}, {}))
- \* a check "replicates" when it hands the replicator a task with at least one candidate node. (With overlapping
-\* rules the code as found keeps calling the replicator with an EMPTY candidate list: a holder remembered from
-\* an earlier rule does not lower the shortage of a later rule - a phantom shortage that copies nothing.)
-Replicates(d) == \E k \in 1..Len(d.tasks) : Len(d.tasks[k].nodes) > 0
-Quiet(hs) == \A n \in hs : LET d == Decide27(n, hs, {}, {}) IN ~Replicates(d) /\ d.del = "none"
-NoTasks(hs) == \A n \in hs : ~Replicates(Decide27(n, hs, {}, {}))
- \* a check "replicates" when it hands the replicator a task with at least one candidate node. (With overlapping
-\* rules the code as found keeps calling the replicator with an EMPTY candidate list: a holder remembered from
-\* an earlier rule does not lower the shortage of a later rule - a phantom shortage that copies nothing.)
-Replicates(d) == \E k \in 1..Len(d.tasks) : Len(d.tasks[k].nodes) > 0
-Quiet(hs) == \A n \in hs : LET d == Decide27(n, hs, {}, {}) IN ~Replicates(d) /\ d.del = "none"
-NoTasks(hs) == \A n \in hs : ~Replicates(Decide27(n, hs, {}, {}))
- \* a check "replicates" when it hands the replicator a task with at least one candidate node. (With overlapping
-\* rules the code as found keeps calling the replicator with an EMPTY candidate list: a holder remembered from
-\* an earlier rule does not lower the shortage of a later rule - a phantom shortage that copies nothing.)
-Replicates(d) == \E k \in 1..Len(d.tasks) : Len(d.tasks[k].nodes) > 0
-Quiet(hs) == \A n \in hs : LET d == Decide27(n, hs, {}, {}) IN ~Replicates(d) /\ d.del = "none"
-NoTasks(hs) == \A n \in hs : ~Replicates(Decide27(n, hs, {}, {}))
- \* a check "replicates" when it hands the replicator a task with at least one candidate node. (With overlapping
-\* rules the code as found keeps calling the replicator with an EMPTY candidate list: a holder remembered from
-\* an earlier rule does not lower the shortage of a later rule - a phantom shortage that copies nothing.)
-Replicates(d) == \E k \in 1..Len(d.tasks) : Len(d.tasks[k].nodes) > 0
-Quiet(hs) == \A n \in hs : LET d == Decide27(n, hs, {}, {}) IN ~Replicates(d) /\ d.del = "none"
-NoTasks(hs) == \A n \in hs : ~Replicates(Decide27(n, hs, {}, {}))
- \* a check "replicates" when it hands the replicator a task with at least one candidate node. (With overlapping
-\* rules the code as found keeps calling the replicator with an EMPTY candidate list: a holder remembered from
-\* an earlier rule does not lower the shortage of a later rule - a phantom shortage that copies nothing.)
-Replicates(d) == \E k \in 1..Len(d.tasks) : Len(d.tasks[k].nodes) > 0
-Quiet(hs) == \A n \in hs : LET d == Decide27(n, hs, {}, {}) IN ~Replicates(d) /\ d.del = "none"
-NoTasks(hs) == \A n \in hs : ~Replicates(Decide27(n, hs, {}, {}))
- \* a check "replicates" when it hands the replicator a task with at least one candidate node. (With overlapping
-\* rules the code as found keeps calling the replicator with an EMPTY candidate list: a holder remembered from
-\* an earlier rule does not lower the shortage of a later rule - a phantom shortage that copies nothing.)
-Replicates(d) == \E k \in 1..Len(d.tasks) : Len(d.tasks[k].nodes) > 0
-Quiet(hs) == \A n \in hs : LET d == Decide27(n, hs, {}, {}) IN ~Replicates(d) /\ d.del = "none"
-NoTasks(hs) == \A n \in hs : ~Replicates(Decide27(n, hs, {}, {}))
- \* a check "replicates" when it hands the replicator a task with at least one candidate node. (With overlapping
-\* rules the code as found keeps calling the replicator with an EMPTY candidate list: a holder remembered from
-\* an earlier rule does not lower the shortage of a later rule - a phantom shortage that copies nothing.)
-Replicates(d) == \E k \in 1..Len(d.tasks) : Len(d.tasks[k].nodes) > 0
-Quiet(hs) == \A n \in hs : LET d == Decide27(n, hs, {}, {}) IN ~Replicates(d) /\ d.del = "none"
-NoTasks(hs) == \A n \in hs : ~Replicates(Decide27(n, hs, {}, {}))
- \* a check "replicates" when it hands the replicator a task with at least one candidate node. (With overlapping
-\* rules the code as found keeps calling the replicator with an EMPTY candidate list: a holder remembered from
-\* an earlier rule does not lower the shortage of a later rule - a phantom shortage that copies nothing.)
-Replicates(d) == \E k \in 1..Len(d.tasks) : Len(d.tasks[k].nodes) > 0
-Quiet(hs) == \A n \in hs : LET d == Decide27(n, hs, {}, {}) IN ~Replicates(d) /\ d.del = "none"
-NoTasks(hs) == \A n \in hs : ~Replicates(Decide27(n, hs, {}, {}))
- \* a check "replicates" when it hands the replicator a task with at least one candidate node. (With overlapping
-\* rules the code as found keeps calling the replicator with an EMPTY candidate list: a holder remembered from
-\* an earlier rule does not lower the shortage of a later rule - a phantom shortage that copies nothing.)
-Replicates(d) == \E k \in 1..Len(d.tasks) : Len(d.tasks[k].nodes) > 0
-Quiet(hs) == \A n \in hs : LET d == Decide27(n, hs, {}, {}) IN ~Replicates(d) /\ d.del = "none"
-NoTasks(hs) == \A n \in hs : ~Replicates(Decide27(n, hs, {}, {}))
- \* a check "replicates" when it hands the replicator a task with at least one candidate node. (With overlapping
-\* rules the code as found keeps calling the replicator with an EMPTY candidate list: a holder remembered from
-\* an earlier rule does not lower the shortage of a later rule - a phantom shortage that copies nothing.)
-Replicates(d) == \E k \in 1..Len(d.tasks) : Len(d.tasks[k].nodes) > 0
-Quiet(hs) == \A n \in hs : LET d == Decide27(n, hs, {}, {}) IN ~Replicates(d) /\ d.del = "none"
-NoTasks(hs) == \A n \in hs : ~Replicates(Decide27(n, hs, {}, {}))
- \* a check "replicates" when it hands the replicator a task with at least one candidate node. (With overlapping
-\* rules the code as found keeps calling the replicator with an EMPTY candidate list: a holder remembered from
-\* an earlier rule does not lower the shortage of a later rule - a phantom shortage that copies nothing.)
-Replicates(d) == \E k \in 1..Len(d.tasks) : Len(d.tasks[k].nodes) > 0
-Quiet(hs) == \A n \in hs : LET d == Decide27(n, hs, {}, {}) IN ~Replicates(d) /\ d.del = "none"
-NoTasks(hs) == \A n \in hs : ~Replicates(Decide27(n, hs, {}, {}))
- \* a check "replicates" when it hands the replicator a task with at least one candidate node. (With overlapping
-\* rules the code as found keeps calling the replicator with an EMPTY candidate list: a holder remembered from
-\* an earlier rule does not lower the shortage of a later rule - a phantom shortage that copies nothing.)
-Replicates(d) == \E k \in 1..Len(d.tasks) : Len(d.tasks[k].nodes) > 0
-Quiet(hs) == \A n \in hs : LET d == Decide27(n, hs, {}, {}) IN ~Replicates(d) /\ d.del = "none"
-NoTasks(hs) == \A n \in hs : ~Replicates(Decide27(n, hs, {}, {}))
- \* a check "replicates" when it hands the replicator a task with at least one candidate node. (With overlapping
-\* rules the code as found keeps calling the replicator with an EMPTY candidate list: a holder remembered from
-\* an earlier rule does not lower the shortage of a later rule - a phantom shortage that copies nothing.)
-Replicates(d) == \E k \in 1..Len(d.tasks) : Len(d.tasks[k].nodes) > 0
-Quiet(hs) == \A n \in hs : LET d == Decide27(n, hs, {}, {}) IN ~Replicates(d) /\ d.del = "none"
-NoTasks(hs) == \A n \in hs : ~Replicates(Decide27(n, hs, {}, {}))
- \* a check "replicates" when it hands the replicator a task with at least one candidate node. (With overlapping
-\* rules the code as found keeps calling the replicator with an EMPTY candidate list: a holder remembered from
-\* an earlier rule does not lower the shortage of a later rule - a phantom shortage that copies nothing.)
-Replicates(d) == \E k \in 1..Len(d.tasks) : Len(d.tasks[k].nodes) > 0
-Quiet(hs) == \A n \in hs : LET d == Decide27(n, hs, {}, {}) IN ~Replicates(d) /\ d.del = "none"
-NoTasks(hs) == \A n \in hs : ~Replicates(Decide27(n, hs, {}, {}))
- \* a check "replicates" when it hands the replicator a task with at least one candidate node. (With overlapping
-\* rules the code as found keeps calling the replicator with an EMPTY candidate list: a holder remembered from
-\* an earlier rule does not lower the shortage of a later rule - a phantom shortage that copies nothing.)
-Replicates(d) == \E k \in 1..Len(d.tasks) : Len(d.tasks[k].nodes) > 0
-Quiet(hs) == \A n \in hs : LET d == Decide27(n, hs, {}, {}) IN ~Replicates(d) /\ d.del = "none"
-NoTasks(hs) == \A n \in hs : ~Replicates(Decide27(n, hs, {}, {}))
- \* a check "replicates" when it hands the replicator a task with at least one candidate node. (With overlapping
-\* rules the code as found keeps calling the replicator with an EMPTY candidate list: a holder remembered from
-\* an earlier rule does not lower the shortage of a later rule - a phantom shortage that copies nothing.)
-Replicates(d) == \E k \in 1..Len(d.tasks) : Len(d.tasks[k].nodes) > 0
-Quiet(hs) == \A n \in hs : LET d == Decide27(n, hs, {}, {}) IN ~Replicates(d) /\ d.del = "none"
-NoTasks(hs) == \A n \in hs : ~Replicates(Decide27(n, hs, {}, {}))
- \* a check "replicates" when it hands the replicator a task with at least one candidate node. (With overlapping
-\* rules the code as found keeps calling the replicator with an EMPTY candidate list: a holder remembered from
-\* an earlier rule does not lower the shortage of a later rule - a phantom shortage that copies nothing.)
-Replicates(d) == \E k \in 1..Len(d.tasks) : Len(d.tasks[k].nodes) > 0
-Quiet(hs) == \A n \in hs : LET d == Decide27(n, hs, {}, {}) IN ~Replicates(d) /\ d.del = "none"
-NoTasks(hs) == \A n \in hs : ~Replicates(Decide27(n, hs, {}, {}))
- \* a check "replicates" when it hands the replicator a task with at least one candidate node. (With overlapping
-\* rules the code as found keeps calling the replicator with an EMPTY candidate list: a holder remembered from
-\* an earlier rule does not lower the shortage of a later rule - a phantom shortage that copies nothing.)
-Replicates(d) == \E k \in 1..Len(d.tasks) : Len(d.tasks[k].nodes) > 0
-Quiet(hs) == \A n \in hs : LET d == Decide27(n, hs, {}, {}) IN ~Replicates(d) /\ d.del = "none"
-NoTasks(hs) == \A n \in hs : ~Replicates(Decide27(n, hs, {}, {}))
- \* a check "replicates" when it hands the replicator a task with at least one candidate node. (With overlapping
-\* rules the code as found keeps calling the replicator with an EMPTY candidate list: a holder remembered from
-\* an earlier rule does not lower the shortage of a later rule - a phantom shortage that copies nothing.)
-Replicates(d) == \E k \in 1..Len(d.tasks) : Len(d.tasks[k].nodes) > 0
-Quiet(hs) == \A n \in hs : LET d == Decide27(n, hs, {}, {}) IN ~Replicates(d) /\ d.del = "none"
-NoTasks(hs) == \A n \in hs : ~Replicates(Decide27(n, hs, {}, {}))
- \* a check "replicates" when it hands the replicator a task with at least one candidate node. (With overlapping
-\* rules the code as found keeps calling the replicator with an EMPTY candidate list: a holder remembered from
-\* an earlier rule does not lower the shortage of a later rule - a phantom shortage that copies nothing.)
-Replicates(d) == \E k \in 1..Len(d.tasks) : Len(d.tasks[k].nodes) > 0
-Quiet(hs) == \A n \in hs : LET d == Decide27(n, hs, {}, {}) IN ~Replicates(d) /\ d.del = "none"
-NoTasks(hs) == \A n \in hs : ~Replicates(Decide27(n, hs, {}, {}))
- \* a check "replicates" when it hands the replicator a task with at least one candidate node. (With overlapping
-\* rules the code as found keeps calling the replicator with an EMPTY candidate list: a holder remembered from
-\* an earlier rule does not lower the shortage of a later rule - a phantom shortage that copies nothing.)
-Replicates(d) == \E k \in 1..Len(d.tasks) : Len(d.tasks[k].nodes) > 0
-Quiet(hs) == \A n \in hs : LET d == Decide27(n, hs, {}, {}) IN ~Replicates(d) /\ d.del = "none"
-NoTasks(hs) == \A n \in hs : ~Replicates(Decide27(n, hs, {}, {}))
-E\* a check "replicates" when it hands the replicator a task with at least one candidate node. (With overlapping
-\* rules the code as found keeps calling the replicator with an EMPTY candidate list: a holder remembered from
-\* an earlier rule does not lower the shortage of a later rule - a phantom shortage that copies nothing.)
-Replicates(d) == \E k \in 1..Len(d.tasks) : Len(d.tasks[k].nodes) > 0
-Quiet(hs) == \A n \in hs : LET d == Decide27(n, hs, {}, {}) IN ~Replicates(d) /\ d.del = "none"
-NoTasks(hs) == \A n \in hs : ~Replicates(Decide27(n, hs, {}, {}))
-L\* a check "replicates" when it hands the replicator a task with at least one candidate node. (With overlapping
-\* rules the code as found keeps calling the replicator with an EMPTY candidate list: a holder remembered from
-\* an earlier rule does not lower the shortage of a later rule - a phantom shortage that copies nothing.)
-Replicates(d) == \E k \in 1..Len(d.tasks) : Len(d.tasks[k].nodes) > 0
-Quiet(hs) == \A n \in hs : LET d == Decide27(n, hs, {}, {}) IN ~Replicates(d) /\ d.del = "none"
-NoTasks(hs) == \A n \in hs : ~Replicates(Decide27(n, hs, {}, {}))
-S\* a check "replicates" when it hands the replicator a task with at least one candidate node. (With overlapping
-\* rules the code as found keeps calling the replicator with an EMPTY candidate list: a holder remembered from
-\* an earlier rule does not lower the shortage of a later rule - a phantom shortage that copies nothing.)
-Replicates(d) == \E k \in 1..Len(d.tasks) : Len(d.tasks[k].nodes) > 0
-Quiet(hs) == \A n \in hs : LET d == Decide27(n, hs, {}, {}) IN ~Replicates(d) /\ d.del = "none"
-NoTasks(hs) == \A n \in hs : ~Replicates(Decide27(n, hs, {}, {}))
-E\* a check "replicates" when it hands the replicator a task with at least one candidate node. (With overlapping
-\* rules the code as found keeps calling the replicator with an EMPTY candidate list: a holder remembered from
-\* an earlier rule does not lower the shortage of a later rule - a phantom shortage that copies nothing.)
-Replicates(d) == \E k \in 1..Len(d.tasks) : Len(d.tasks[k].nodes) > 0
-Quiet(hs) == \A n \in hs : LET d == Decide27(n, hs, {}, {}) IN ~Replicates(d) /\ d.del = "none"
-NoTasks(hs) == \A n \in hs : ~Replicates(Decide27(n, hs, {}, {}))
- \* a check "replicates" when it hands the replicator a task with at least one candidate node. (With overlapping
-\* rules the code as found keeps calling the replicator with an EMPTY candidate list: a holder remembered from
-\* an earlier rule does not lower the shortage of a later rule - a phantom shortage that copies nothing.)
-Replicates(d) == \E k \in 1..Len(d.tasks) : Len(d.tasks[k].nodes) > 0
-Quiet(hs) == \A n \in hs : LET d == Decide27(n, hs, {}, {}) IN ~Replicates(d) /\ d.del = "none"
-NoTasks(hs) == \A n \in hs : ~Replicates(Decide27(n, hs, {}, {}))
-r\* a check "replicates" when it hands the replicator a task with at least one candidate node. (With overlapping
-\* rules the code as found keeps calling the replicator with an EMPTY candidate list: a holder remembered from
-\* an earlier rule does not lower the shortage of a later rule - a phantom shortage that copies nothing.)
-Replicates(d) == \E k \in 1..Len(d.tasks) : Len(d.tasks[k].nodes) > 0
-Quiet(hs) == \A n \in hs : LET d == Decide27(n, hs, {}, {}) IN ~Replicates(d) /\ d.del = "none"
-NoTasks(hs) == \A n \in hs : ~Replicates(Decide27(n, hs, {}, {}))
-a\* a check "replicates" when it hands the replicator a task with at least one candidate node. (With overlapping
-\* rules the code as found keeps calling the replicator with an EMPTY candidate list: a holder remembered from
-\* an earlier rule does not lower the shortage of a later rule - a phantom shortage that copies nothing.)
-Replicates(d) == \E k \in 1..Len(d.tasks) : Len(d.tasks[k].nodes) > 0
-Quiet(hs) == \A n \in hs : LET d == Decide27(n, hs, {}, {}) IN ~Replicates(d) /\ d.del = "none"
-NoTasks(hs) == \A n \in hs : ~Replicates(Decide27(n, hs, {}, {}))
-n\* a check "replicates" when it hands the replicator a task with at least one candidate node. (With overlapping
-\* rules the code as found keeps calling the replicator with an EMPTY candidate list: a holder remembered from
-\* an earlier rule does not lower the shortage of a later rule - a phantom shortage that copies nothing.)
-Replicates(d) == \E k \in 1..Len(d.tasks) : Len(d.tasks[k].nodes) > 0
-Quiet(hs) == \A n \in hs : LET d == Decide27(n, hs, {}, {}) IN ~Replicates(d) /\ d.del = "none"
-NoTasks(hs) == \A n \in hs : ~Replicates(Decide27(n, hs, {}, {}))
-'\* a check "replicates" when it hands the replicator a task with at least one candidate node. (With overlapping
-\* rules the code as found keeps calling the replicator with an EMPTY candidate list: a holder remembered from
-\* an earlier rule does not lower the shortage of a later rule - a phantom shortage that copies nothing.)
-Replicates(d) == \E k \in 1..Len(d.tasks) : Len(d.tasks[k].nodes) > 0
-Quiet(hs) == \A n \in hs : LET d == Decide27(n, hs, {}, {}) IN ~Replicates(d) /\ d.del = "none"
-NoTasks(hs) == \A n \in hs : ~Replicates(Decide27(n, hs, {}, {}))
- \* a check "replicates" when it hands the replicator a task with at least one candidate node. (With overlapping
-\* rules the code as found keeps calling the replicator with an EMPTY candidate list: a holder remembered from
-\* an earlier rule does not lower the shortage of a later rule - a phantom shortage that copies nothing.)
-Replicates(d) == \E k \in 1..Len(d.tasks) : Len(d.tasks[k].nodes) > 0
-Quiet(hs) == \A n \in hs : LET d == Decide27(n, hs, {}, {}) IN ~Replicates(d) /\ d.del = "none"
-NoTasks(hs) == \A n \in hs : ~Replicates(Decide27(n, hs, {}, {}))
-=\* a check "replicates" when it hands the replicator a task with at least one candidate node. (With overlapping
-\* rules the code as found keeps calling the replicator with an EMPTY candidate list: a holder remembered from
-\* an earlier rule does not lower the shortage of a later rule - a phantom shortage that copies nothing.)
-Replicates(d) == \E k \in 1..Len(d.tasks) : Len(d.tasks[k].nodes) > 0
-Quiet(hs) == \A n \in hs : LET d == Decide27(n, hs, {}, {}) IN ~Replicates(d) /\ d.del = "none"
-NoTasks(hs) == \A n \in hs : ~Replicates(Decide27(n, hs, {}, {}))
- \* a check "replicates" when it hands the replicator a task with at least one candidate node. (With overlapping
-\* rules the code as found keeps calling the replicator with an EMPTY candidate list: a holder remembered from
-\* an earlier rule does not lower the shortage of a later rule - a phantom shortage that copies nothing.)
-Replicates(d) == \E k \in 1..Len(d.tasks) : Len(d.tasks[k].nodes) > 0
-Quiet(hs) == \A n \in hs : LET d == Decide27(n, hs, {}, {}) IN ~Replicates(d) /\ d.del = "none"
-NoTasks(hs) == \A n \in hs : ~Replicates(Decide27(n, hs, {}, {}))
-r\* a check "replicates" when it hands the replicator a task with at least one candidate node. (With overlapping
-\* rules the code as found keeps calling the replicator with an EMPTY candidate list: a holder remembered from
-\* an earlier rule does not lower the shortage of a later rule - a phantom shortage that copies nothing.)
-Replicates(d) == \E k \in 1..Len(d.tasks) : Len(d.tasks[k].nodes) > 0
-Quiet(hs) == \A n \in hs : LET d == Decide27(n, hs, {}, {}) IN ~Replicates(d) /\ d.del = "none"
-NoTasks(hs) == \A n \in hs : ~Replicates(Decide27(n, hs, {}, {}))
-a\* a check "replicates" when it hands the replicator a task with at least one candidate node. (With overlapping
-\* rules the code as found keeps calling the replicator with an EMPTY candidate list: a holder remembered from
-\* an earlier rule does not lower the shortage of a later rule - a phantom shortage that copies nothing.)
-Replicates(d) == \E k \in 1..Len(d.tasks) : Len(d.tasks[k].nodes) > 0
-Quiet(hs) == \A n \in hs : LET d == Decide27(n, hs, {}, {}) IN ~Replicates(d) /\ d.del = "none"
-NoTasks(hs) == \A n \in hs : ~Replicates(Decide27(n, hs, {}, {}))
-n\* a check "replicates" when it hands the replicator a task with at least one candidate node. (With overlapping
-\* rules the code as found keeps calling the replicator with an EMPTY candidate list: a holder remembered from
-\* an earlier rule does not lower the shortage of a later rule - a phantom shortage that copies nothing.)
-Replicates(d) == \E k \in 1..Len(d.tasks) : Len(d.tasks[k].nodes) > 0
-Quiet(hs) == \A n \in hs : LET d == Decide27(n, hs, {}, {}) IN ~Replicates(d) /\ d.del = "none"
-NoTasks(hs) == \A n \in hs : ~Replicates(Decide27(n, hs, {}, {}))
-1\* a check "replicates" when it hands the replicator a task with at least one candidate node. (With overlapping
-\* rules the code as found keeps calling the replicator with an EMPTY candidate list: a holder remembered from
-\* an earlier rule does not lower the shortage of a later rule - a phantom shortage that copies nothing.)
-Replicates(d) == \E k \in 1..Len(d.tasks) : Len(d.tasks[k].nodes) > 0
-Quiet(hs) == \A n \in hs : LET d == Decide27(n, hs, {}, {}) IN ~Replicates(d) /\ d.del = "none"
-NoTasks(hs) == \A n \in hs : ~Replicates(Decide27(n, hs, {}, {}))
- \* a check "replicates" when it hands the replicator a task with at least one candidate node. (With overlapping
-\* rules the code as found keeps calling the replicator with an EMPTY candidate list: a holder remembered from
-\* an earlier rule does not lower the shortage of a later rule - a phantom shortage that copies nothing.)
-Replicates(d) == \E k \in 1..Len(d.tasks) : Len(d.tasks[k].nodes) > 0
-Quiet(hs) == \A n \in hs : LET d == Decide27(n, hs, {}, {}) IN ~Replicates(d) /\ d.del = "none"
-NoTasks(hs) == \A n \in hs : ~Replicates(Decide27(n, hs, {}, {}))
-/\* a check "replicates" when it hands the replicator a task with at least one candidate node. (With overlapping
-\* rules the code as found keeps calling the replicator with an EMPTY candidate list: a holder remembered from
-\* an earlier rule does not lower the shortage of a later rule - a phantom shortage that copies nothing.)
-Replicates(d) == \E k \in 1..Len(d.tasks) : Len(d.tasks[k].nodes) > 0
-Quiet(hs) == \A n \in hs : LET d == Decide27(n, hs, {}, {}) IN ~Replicates(d) /\ d.del = "none"
-NoTasks(hs) == \A n \in hs : ~Replicates(Decide27(n, hs, {}, {}))
-\\* a check "replicates" when it hands the replicator a task with at least one candidate node. (With overlapping
-\* rules the code as found keeps calling the replicator with an EMPTY candidate list: a holder remembered from
-\* an earlier rule does not lower the shortage of a later rule - a phantom shortage that copies nothing.)
-Replicates(d) == \E k \in 1..Len(d.tasks) : Len(d.tasks[k].nodes) > 0
-Quiet(hs) == \A n \in hs : LET d == Decide27(n, hs, {}, {}) IN ~Replicates(d) /\ d.del = "none"
-NoTasks(hs) == \A n \in hs : ~Replicates(Decide27(n, hs, {}, {}))
- \* a check "replicates" when it hands the replicator a task with at least one candidate node. (With overlapping
-\* rules the code as found keeps calling the replicator with an EMPTY candidate list: a holder remembered from
-\* an earlier rule does not lower the shortage of a later rule - a phantom shortage that copies nothing.)
-Replicates(d) == \E k \in 1..Len(d.tasks) : Len(d.tasks[k].nodes) > 0
-Quiet(hs) == \A n \in hs : LET d == Decide27(n, hs, {}, {}) IN ~Replicates(d) /\ d.del = "none"
-NoTasks(hs) == \A n \in hs : ~Replicates(Decide27(n, hs, {}, {}))
-U\* a check "replicates" when it hands the replicator a task with at least one candidate node. (With overlapping
-\* rules the code as found keeps calling the replicator with an EMPTY candidate list: a holder remembered from
-\* an earlier rule does not lower the shortage of a later rule - a phantom shortage that copies nothing.)
-Replicates(d) == \E k \in 1..Len(d.tasks) : Len(d.tasks[k].nodes) > 0
-Quiet(hs) == \A n \in hs : LET d == Decide27(n, hs, {}, {}) IN ~Replicates(d) /\ d.del = "none"
-NoTasks(hs) == \A n \in hs : ~Replicates(Decide27(n, hs, {}, {}))
-N\* a check "replicates" when it hands the replicator a task with at least one candidate node. (With overlapping
-\* rules the code as found keeps calling the replicator with an EMPTY candidate list: a holder remembered from
-\* an earlier rule does not lower the shortage of a later rule - a phantom shortage that copies nothing.)
-Replicates(d) == \E k \in 1..Len(d.tasks) : Len(d.tasks[k].nodes) > 0
-Quiet(hs) == \A n \in hs : LET d == Decide27(n, hs, {}, {}) IN ~Replicates(d) /\ d.del = "none"
-NoTasks(hs) == \A n \in hs : ~Replicates(Decide27(n, hs, {}, {}))
-C\* a check "replicates" when it hands the replicator a task with at least one candidate node. (With overlapping
-\* rules the code as found keeps calling the replicator with an EMPTY candidate list: a holder remembered from
-\* an earlier rule does not lower the shortage of a later rule - a phantom shortage that copies nothing.)
-Replicates(d) == \E k \in 1..Len(d.tasks) : Len(d.tasks[k].nodes) > 0
-Quiet(hs) == \A n \in hs : LET d == Decide27(n, hs, {}, {}) IN ~Replicates(d) /\ d.del = "none"
-NoTasks(hs) == \A n \in hs : ~Replicates(Decide27(n, hs, {}, {}))
-H\* a check "replicates" when it hands the replicator a task with at least one candidate node. (With overlapping
-\* rules the code as found keeps calling the replicator with an EMPTY candidate list: a holder remembered from
-\* an earlier rule does not lower the shortage of a later rule - a phantom shortage that copies nothing.)
-Replicates(d) == \E k \in 1..Len(d.tasks) : Len(d.tasks[k].nodes) > 0
-Quiet(hs) == \A n \in hs : LET d == Decide27(n, hs, {}, {}) IN ~Replicates(d) /\ d.del = "none"
-NoTasks(hs) == \A n \in hs : ~Replicates(Decide27(n, hs, {}, {}))
-A\* a check "replicates" when it hands the replicator a task with at least one candidate node. (With overlapping
-\* rules the code as found keeps calling the replicator with an EMPTY candidate list: a holder remembered from
-\* an earlier rule does not lower the shortage of a later rule - a phantom shortage that copies nothing.)
-Replicates(d) == \E k \in 1..Len(d.tasks) : Len(d.tasks[k].nodes) > 0
-Quiet(hs) == \A n \in hs : LET d == Decide27(n, hs, {}, {}) IN ~Replicates(d) /\ d.del = "none"
-NoTasks(hs) == \A n \in hs : ~Replicates(Decide27(n, hs, {}, {}))
-N\* a check "replicates" when it hands the replicator a task with at least one candidate node. (With overlapping
-\* rules the code as found keeps calling the replicator with an EMPTY candidate list: a holder remembered from
-\* an earlier rule does not lower the shortage of a later rule - a phantom shortage that copies nothing.)
-Replicates(d) == \E k \in 1..Len(d.tasks) : Len(d.tasks[k].nodes) > 0
-Quiet(hs) == \A n \in hs : LET d == Decide27(n, hs, {}, {}) IN ~Replicates(d) /\ d.del = "none"
-NoTasks(hs) == \A n \in hs : ~Replicates(Decide27(n, hs, {}, {}))
-G\* a check "replicates" when it hands the replicator a task with at least one candidate node. (With overlapping
-\* rules the code as found keeps calling the replicator with an EMPTY candidate list: a holder remembered from
-\* an earlier rule does not lower the shortage of a later rule - a phantom shortage that copies nothing.)
-Replicates(d) == \E k \in 1..Len(d.tasks) : Len(d.tasks[k].nodes) > 0
-Quiet(hs) == \A n \in hs : LET d == Decide27(n, hs, {}, {}) IN ~Replicates(d) /\ d.del = "none"
-NoTasks(hs) == \A n \in hs : ~Replicates(Decide27(n, hs, {}, {}))
-E\* a check "replicates" when it hands the replicator a task with at least one candidate node. (With overlapping
-\* rules the code as found keeps calling the replicator with an EMPTY candidate list: a holder remembered from
-\* an earlier rule does not lower the shortage of a later rule - a phantom shortage that copies nothing.)
-Replicates(d) == \E k \in 1..Len(d.tasks) : Len(d.tasks[k].nodes) > 0
-Quiet(hs) == \A n \in hs : LET d == Decide27(n, hs, {}, {}) IN ~Replicates(d) /\ d.del = "none"
-NoTasks(hs) == \A n \in hs : ~Replicates(Decide27(n, hs, {}, {}))
-D\* a check "replicates" when it hands the replicator a task with at least one candidate node. (With overlapping
-\* rules the code as found keeps calling the replicator with an EMPTY candidate list: a holder remembered from
-\* an earlier rule does not lower the shortage of a later rule - a phantom shortage that copies nothing.)
-Replicates(d) == \E k \in 1..Len(d.tasks) : Len(d.tasks[k].nodes) > 0
-Quiet(hs) == \A n \in hs : LET d == Decide27(n, hs, {}, {}) IN ~Replicates(d) /\ d.del = "none"
-NoTasks(hs) == \A n \in hs : ~Replicates(Decide27(n, hs, {}, {}))
- \* a check "replicates" when it hands the replicator a task with at least one candidate node. (With overlapping
-\* rules the code as found keeps calling the replicator with an EMPTY candidate list: a holder remembered from
-\* an earlier rule does not lower the shortage of a later rule - a phantom shortage that copies nothing.)
-Replicates(d) == \E k \in 1..Len(d.tasks) : Len(d.tasks[k].nodes) > 0
-Quiet(hs) == \A n \in hs : LET d == Decide27(n, hs, {}, {}) IN ~Replicates(d) /\ d.del = "none"
-NoTasks(hs) == \A n \in hs : ~Replicates(Decide27(n, hs, {}, {}))
-r\* a check "replicates" when it hands the replicator a task with at least one candidate node. (With overlapping
-\* rules the code as found keeps calling the replicator with an EMPTY candidate list: a holder remembered from
-\* an earlier rule does not lower the shortage of a later rule - a phantom shortage that copies nothing.)
-Replicates(d) == \E k \in 1..Len(d.tasks) : Len(d.tasks[k].nodes) > 0
-Quiet(hs) == \A n \in hs : LET d == Decide27(n, hs, {}, {}) IN ~Replicates(d) /\ d.del = "none"
-NoTasks(hs) == \A n \in hs : ~Replicates(Decide27(n, hs, {}, {}))
-o\* a check "replicates" when it hands the replicator a task with at least one candidate node. (With overlapping
-\* rules the code as found keeps calling the replicator with an EMPTY candidate list: a holder remembered from
-\* an earlier rule does not lower the shortage of a later rule - a phantom shortage that copies nothing.)
-Replicates(d) == \E k \in 1..Len(d.tasks) : Len(d.tasks[k].nodes) > 0
-Quiet(hs) == \A n \in hs : LET d == Decide27(n, hs, {}, {}) IN ~Replicates(d) /\ d.del = "none"
-NoTasks(hs) == \A n \in hs : ~Replicates(Decide27(n, hs, {}, {}))
-u\* a check "replicates" when it hands the replicator a task with at least one candidate node. (With overlapping
-\* rules the code as found keeps calling the replicator with an EMPTY candidate list: a holder remembered from
-\* an earlier rule does not lower the shortage of a later rule - a phantom shortage that copies nothing.)
-Replicates(d) == \E k \in 1..Len(d.tasks) : Len(d.tasks[k].nodes) > 0
-Quiet(hs) == \A n \in hs : LET d == Decide27(n, hs, {}, {}) IN ~Replicates(d) /\ d.del = "none"
-NoTasks(hs) == \A n \in hs : ~Replicates(Decide27(n, hs, {}, {}))
-n\* a check "replicates" when it hands the replicator a task with at least one candidate node. (With overlapping
-\* rules the code as found keeps calling the replicator with an EMPTY candidate list: a holder remembered from
-\* an earlier rule does not lower the shortage of a later rule - a phantom shortage that copies nothing.)
-Replicates(d) == \E k \in 1..Len(d.tasks) : Len(d.tasks[k].nodes) > 0
-Quiet(hs) == \A n \in hs : LET d == Decide27(n, hs, {}, {}) IN ~Replicates(d) /\ d.del = "none"
-NoTasks(hs) == \A n \in hs : ~Replicates(Decide27(n, hs, {}, {}))
-d\* a check "replicates" when it hands the replicator a task with at least one candidate node. (With overlapping
-\* rules the code as found keeps calling the replicator with an EMPTY candidate list: a holder remembered from
-\* an earlier rule does not lower the shortage of a later rule - a phantom shortage that copies nothing.)
-Replicates(d) == \E k \in 1..Len(d.tasks) : Len(d.tasks[k].nodes) > 0
-Quiet(hs) == \A n \in hs : LET d == Decide27(n, hs, {}, {}) IN ~Replicates(d) /\ d.del = "none"
-NoTasks(hs) == \A n \in hs : ~Replicates(Decide27(n, hs, {}, {}))
-
-\* a check "replicates" when it hands the replicator a task with at least one candidate node. (With overlapping
-\* rules the code as found keeps calling the replicator with an EMPTY candidate list: a holder remembered from
-\* an earlier rule does not lower the shortage of a later rule - a phantom shortage that copies nothing.)
-Replicates(d) == \E k \in 1..Len(d.tasks) : Len(d.tasks[k].nodes) > 0
-Quiet(hs) == \A n \in hs : LET d == Decide27(n, hs, {}, {}) IN ~Replicates(d) /\ d.del = "none"
-NoTasks(hs) == \A n \in hs : ~Replicates(Decide27(n, hs, {}, {}))
-
-\* a check "replicates" when it hands the replicator a task with at least one candidate node. (With overlapping
-\* rules the code as found keeps calling the replicator with an EMPTY candidate list: a holder remembered from
-\* an earlier rule does not lower the shortage of a later rule - a phantom shortage that copies nothing.)
-Replicates(d) == \E k \in 1..Len(d.tasks) : Len(d.tasks[k].nodes) > 0
-Quiet(hs) == \A n \in hs : LET d == Decide27(n, hs, {}, {}) IN ~Replicates(d) /\ d.del = "none"
-NoTasks(hs) == \A n \in hs : ~Replicates(Decide27(n, hs, {}, {}))
-C\* a check "replicates" when it hands the replicator a task with at least one candidate node. (With overlapping
-\* rules the code as found keeps calling the replicator with an EMPTY candidate list: a holder remembered from
-\* an earlier rule does not lower the shortage of a later rule - a phantom shortage that copies nothing.)
-Replicates(d) == \E k \in 1..Len(d.tasks) : Len(d.tasks[k].nodes) > 0
-Quiet(hs) == \A n \in hs : LET d == Decide27(n, hs, {}, {}) IN ~Replicates(d) /\ d.del = "none"
-NoTasks(hs) == \A n \in hs : ~Replicates(Decide27(n, hs, {}, {}))
-L\* a check "replicates" when it hands the replicator a task with at least one candidate node. (With overlapping
-\* rules the code as found keeps calling the replicator with an EMPTY candidate list: a holder remembered from
-\* an earlier rule does not lower the shortage of a later rule - a phantom shortage that copies nothing.)
-Replicates(d) == \E k \in 1..Len(d.tasks) : Len(d.tasks[k].nodes) > 0
-Quiet(hs) == \A n \in hs : LET d == Decide27(n, hs, {}, {}) IN ~Replicates(d) /\ d.del = "none"
-NoTasks(hs) == \A n \in hs : ~Replicates(Decide27(n, hs, {}, {}))
-i\* a check "replicates" when it hands the replicator a task with at least one candidate node. (With overlapping
-\* rules the code as found keeps calling the replicator with an EMPTY candidate list: a holder remembered from
-\* an earlier rule does not lower the shortage of a later rule - a phantom shortage that copies nothing.)
-Replicates(d) == \E k \in 1..Len(d.tasks) : Len(d.tasks[k].nodes) > 0
-Quiet(hs) == \A n \in hs : LET d == Decide27(n, hs, {}, {}) IN ~Replicates(d) /\ d.del = "none"
-NoTasks(hs) == \A n \in hs : ~Replicates(Decide27(n, hs, {}, {}))
-s\* a check "replicates" when it hands the replicator a task with at least one candidate node. (With overlapping
-\* rules the code as found keeps calling the replicator with an EMPTY candidate list: a holder remembered from
-\* an earlier rule does not lower the shortage of a later rule - a phantom shortage that copies nothing.)
-Replicates(d) == \E k \in 1..Len(d.tasks) : Len(d.tasks[k].nodes) > 0
-Quiet(hs) == \A n \in hs : LET d == Decide27(n, hs, {}, {}) IN ~Replicates(d) /\ d.del = "none"
-NoTasks(hs) == \A n \in hs : ~Replicates(Decide27(n, hs, {}, {}))
-t\* a check "replicates" when it hands the replicator a task with at least one candidate node. (With overlapping
-\* rules the code as found keeps calling the replicator with an EMPTY candidate list: a holder remembered from
-\* an earlier rule does not lower the shortage of a later rule - a phantom shortage that copies nothing.)
-Replicates(d) == \E k \in 1..Len(d.tasks) : Len(d.tasks[k].nodes) > 0
-Quiet(hs) == \A n \in hs : LET d == Decide27(n, hs, {}, {}) IN ~Replicates(d) /\ d.del = "none"
-NoTasks(hs) == \A n \in hs : ~Replicates(Decide27(n, hs, {}, {}))
-s\* a check "replicates" when it hands the replicator a task with at least one candidate node. (With overlapping
-\* rules the code as found keeps calling the replicator with an EMPTY candidate list: a holder remembered from
-\* an earlier rule does not lower the shortage of a later rule - a phantom shortage that copies nothing.)
-Replicates(d) == \E k \in 1..Len(d.tasks) : Len(d.tasks[k].nodes) > 0
-Quiet(hs) == \A n \in hs : LET d == Decide27(n, hs, {}, {}) IN ~Replicates(d) /\ d.del = "none"
-NoTasks(hs) == \A n \in hs : ~Replicates(Decide27(n, hs, {}, {}))
- \* a check "replicates" when it hands the replicator a task with at least one candidate node. (With overlapping
-\* rules the code as found keeps calling the replicator with an EMPTY candidate list: a holder remembered from
-\* an earlier rule does not lower the shortage of a later rule - a phantom shortage that copies nothing.)
-Replicates(d) == \E k \in 1..Len(d.tasks) : Len(d.tasks[k].nodes) > 0
-Quiet(hs) == \A n \in hs : LET d == Decide27(n, hs, {}, {}) IN ~Replicates(d) /\ d.del = "none"
-NoTasks(hs) == \A n \in hs : ~Replicates(Decide27(n, hs, {}, {}))
-=\* a check "replicates" when it hands the replicator a task with at least one candidate node. (With overlapping
-\* rules the code as found keeps calling the replicator with an EMPTY candidate list: a holder remembered from
-\* an earlier rule does not lower the shortage of a later rule - a phantom shortage that copies nothing.)
-Replicates(d) == \E k \in 1..Len(d.tasks) : Len(d.tasks[k].nodes) > 0
-Quiet(hs) == \A n \in hs : LET d == Decide27(n, hs, {}, {}) IN ~Replicates(d) /\ d.del = "none"
-NoTasks(hs) == \A n \in hs : ~Replicates(Decide27(n, hs, {}, {}))
-=\* a check "replicates" when it hands the replicator a task with at least one candidate node. (With overlapping
-\* rules the code as found keeps calling the replicator with an EMPTY candidate list: a holder remembered from
-\* an earlier rule does not lower the shortage of a later rule - a phantom shortage that copies nothing.)
-Replicates(d) == \E k \in 1..Len(d.tasks) : Len(d.tasks[k].nodes) > 0
-Quiet(hs) == \A n \in hs : LET d == Decide27(n, hs, {}, {}) IN ~Replicates(d) /\ d.del = "none"
-NoTasks(hs) == \A n \in hs : ~Replicates(Decide27(n, hs, {}, {}))
- \* a check "replicates" when it hands the replicator a task with at least one candidate node. (With overlapping
-\* rules the code as found keeps calling the replicator with an EMPTY candidate list: a holder remembered from
-\* an earlier rule does not lower the shortage of a later rule - a phantom shortage that copies nothing.)
-Replicates(d) == \E k \in 1..Len(d.tasks) : Len(d.tasks[k].nodes) > 0
-Quiet(hs) == \A n \in hs : LET d == Decide27(n, hs, {}, {}) IN ~Replicates(d) /\ d.del = "none"
-NoTasks(hs) == \A n \in hs : ~Replicates(Decide27(n, hs, {}, {}))
-{\* a check "replicates" when it hands the replicator a task with at least one candidate node. (With overlapping
-\* rules the code as found keeps calling the replicator with an EMPTY candidate list: a holder remembered from
-\* an earlier rule does not lower the shortage of a later rule - a phantom shortage that copies nothing.)
-Replicates(d) == \E k \in 1..Len(d.tasks) : Len(d.tasks[k].nodes) > 0
-Quiet(hs) == \A n \in hs : LET d == Decide27(n, hs, {}, {}) IN ~Replicates(d) /\ d.del = "none"
-NoTasks(hs) == \A n \in hs : ~Replicates(Decide27(n, hs, {}, {}))
-q\* a check "replicates" when it hands the replicator a task with at least one candidate node. (With overlapping
-\* rules the code as found keeps calling the replicator with an EMPTY candidate list: a holder remembered from
-\* an earlier rule does not lower the shortage of a later rule - a phantom shortage that copies nothing.)
-Replicates(d) == \E k \in 1..Len(d.tasks) : Len(d.tasks[k].nodes) > 0
-Quiet(hs) == \A n \in hs : LET d == Decide27(n, hs, {}, {}) IN ~Replicates(d) /\ d.del = "none"
-NoTasks(hs) == \A n \in hs : ~Replicates(Decide27(n, hs, {}, {}))
- \* a check "replicates" when it hands the replicator a task with at least one candidate node. (With overlapping
-\* rules the code as found keeps calling the replicator with an EMPTY candidate list: a holder remembered from
-\* an earlier rule does not lower the shortage of a later rule - a phantom shortage that copies nothing.)
-Replicates(d) == \E k \in 1..Len(d.tasks) : Len(d.tasks[k].nodes) > 0
-Quiet(hs) == \A n \in hs : LET d == Decide27(n, hs, {}, {}) IN ~Replicates(d) /\ d.del = "none"
-NoTasks(hs) == \A n \in hs : ~Replicates(Decide27(n, hs, {}, {}))
-\\* a check "replicates" when it hands the replicator a task with at least one candidate node. (With overlapping
-\* rules the code as found keeps calling the replicator with an EMPTY candidate list: a holder remembered from
-\* an earlier rule does not lower the shortage of a later rule - a phantom shortage that copies nothing.)
-Replicates(d) == \E k \in 1..Len(d.tasks) : Len(d.tasks[k].nodes) > 0
-Quiet(hs) == \A n \in hs : LET d == Decide27(n, hs, {}, {}) IN ~Replicates(d) /\ d.del = "none"
-NoTasks(hs) == \A n \in hs : ~Replicates(Decide27(n, hs, {}, {}))
-i\* a check "replicates" when it hands the replicator a task with at least one candidate node. (With overlapping
-\* rules the code as found keeps calling the replicator with an EMPTY candidate list: a holder remembered from
-\* an earlier rule does not lower the shortage of a later rule - a phantom shortage that copies nothing.)
-Replicates(d) == \E k \in 1..Len(d.tasks) : Len(d.tasks[k].nodes) > 0
-Quiet(hs) == \A n \in hs : LET d == Decide27(n, hs, {}, {}) IN ~Replicates(d) /\ d.del = "none"
-NoTasks(hs) == \A n \in hs : ~Replicates(Decide27(n, hs, {}, {}))
-n\* a check "replicates" when it hands the replicator a task with at least one candidate node. (With overlapping
-\* rules the code as found keeps calling the replicator with an EMPTY candidate list: a holder remembered from
-\* an earlier rule does not lower the shortage of a later rule - a phantom shortage that copies nothing.)
-Replicates(d) == \E k \in 1..Len(d.tasks) : Len(d.tasks[k].nodes) > 0
-Quiet(hs) == \A n \in hs : LET d == Decide27(n, hs, {}, {}) IN ~Replicates(d) /\ d.del = "none"
-NoTasks(hs) == \A n \in hs : ~Replicates(Decide27(n, hs, {}, {}))
- \* a check "replicates" when it hands the replicator a task with at least one candidate node. (With overlapping
-\* rules the code as found keeps calling the replicator with an EMPTY candidate list: a holder remembered from
-\* an earlier rule does not lower the shortage of a later rule - a phantom shortage that copies nothing.)
-Replicates(d) == \E k \in 1..Len(d.tasks) : Len(d.tasks[k].nodes) > 0
-Quiet(hs) == \A n \in hs : LET d == Decide27(n, hs, {}, {}) IN ~Replicates(d) /\ d.del = "none"
-NoTasks(hs) == \A n \in hs : ~Replicates(Decide27(n, hs, {}, {}))
-D\* a check "replicates" when it hands the replicator a task with at least one candidate node. (With overlapping
-\* rules the code as found keeps calling the replicator with an EMPTY candidate list: a holder remembered from
-\* an earlier rule does not lower the shortage of a later rule - a phantom shortage that copies nothing.)
-Replicates(d) == \E k \in 1..Len(d.tasks) : Len(d.tasks[k].nodes) > 0
-Quiet(hs) == \A n \in hs : LET d == Decide27(n, hs, {}, {}) IN ~Replicates(d) /\ d.del = "none"
-NoTasks(hs) == \A n \in hs : ~Replicates(Decide27(n, hs, {}, {}))
-i\* a check "replicates" when it hands the replicator a task with at least one candidate node. (With overlapping
-\* rules the code as found keeps calling the replicator with an EMPTY candidate list: a holder remembered from
-\* an earlier rule does not lower the shortage of a later rule - a phantom shortage that copies nothing.)
-Replicates(d) == \E k \in 1..Len(d.tasks) : Len(d.tasks[k].nodes) > 0
-Quiet(hs) == \A n \in hs : LET d == Decide27(n, hs, {}, {}) IN ~Replicates(d) /\ d.del = "none"
-NoTasks(hs) == \A n \in hs : ~Replicates(Decide27(n, hs, {}, {}))
-s\* a check "replicates" when it hands the replicator a task with at least one candidate node. (With overlapping
-\* rules the code as found keeps calling the replicator with an EMPTY candidate list: a holder remembered from
-\* an earlier rule does not lower the shortage of a later rule - a phantom shortage that copies nothing.)
-Replicates(d) == \E k \in 1..Len(d.tasks) : Len(d.tasks[k].nodes) > 0
-Quiet(hs) == \A n \in hs : LET d == Decide27(n, hs, {}, {}) IN ~Replicates(d) /\ d.del = "none"
-NoTasks(hs) == \A n \in hs : ~Replicates(Decide27(n, hs, {}, {}))
-t\* a check "replicates" when it hands the replicator a task with at least one candidate node. (With overlapping
-\* rules the code as found keeps calling the replicator with an EMPTY candidate list: a holder remembered from
-\* an earlier rule does not lower the shortage of a later rule - a phantom shortage that copies nothing.)
-Replicates(d) == \E k \in 1..Len(d.tasks) : Len(d.tasks[k].nodes) > 0
-Quiet(hs) == \A n \in hs : LET d == Decide27(n, hs, {}, {}) IN ~Replicates(d) /\ d.del = "none"
-NoTasks(hs) == \A n \in hs : ~Replicates(Decide27(n, hs, {}, {}))
-i\* a check "replicates" when it hands the replicator a task with at least one candidate node. (With overlapping
-\* rules the code as found keeps calling the replicator with an EMPTY candidate list: a holder remembered from
-\* an earlier rule does not lower the shortage of a later rule - a phantom shortage that copies nothing.)
-Replicates(d) == \E k \in 1..Len(d.tasks) : Len(d.tasks[k].nodes) > 0
-Quiet(hs) == \A n \in hs : LET d == Decide27(n, hs, {}, {}) IN ~Replicates(d) /\ d.del = "none"
-NoTasks(hs) == \A n \in hs : ~Replicates(Decide27(n, hs, {}, {}))
-n\* a check "replicates" when it hands the replicator a task with at least one candidate node. (With overlapping
-\* rules the code as found keeps calling the replicator with an EMPTY candidate list: a holder remembered from
-\* an earlier rule does not lower the shortage of a later rule - a phantom shortage that copies nothing.)
-Replicates(d) == \E k \in 1..Len(d.tasks) : Len(d.tasks[k].nodes) > 0
-Quiet(hs) == \A n \in hs : LET d == Decide27(n, hs, {}, {}) IN ~Replicates(d) /\ d.del = "none"
-NoTasks(hs) == \A n \in hs : ~Replicates(Decide27(n, hs, {}, {}))
-c\* a check "replicates" when it hands the replicator a task with at least one candidate node. (With overlapping
-\* rules the code as found keeps calling the replicator with an EMPTY candidate list: a holder remembered from
-\* an earlier rule does not lower the shortage of a later rule - a phantom shortage that copies nothing.)
-Replicates(d) == \E k \in 1..Len(d.tasks) : Len(d.tasks[k].nodes) > 0
-Quiet(hs) == \A n \in hs : LET d == Decide27(n, hs, {}, {}) IN ~Replicates(d) /\ d.del = "none"
-NoTasks(hs) == \A n \in hs : ~Replicates(Decide27(n, hs, {}, {}))
-t\* a check "replicates" when it hands the replicator a task with at least one candidate node. (With overlapping
-\* rules the code as found keeps calling the replicator with an EMPTY candidate list: a holder remembered from
-\* an earlier rule does not lower the shortage of a later rule - a phantom shortage that copies nothing.)
-Replicates(d) == \E k \in 1..Len(d.tasks) : Len(d.tasks[k].nodes) > 0
-Quiet(hs) == \A n \in hs : LET d == Decide27(n, hs, {}, {}) IN ~Replicates(d) /\ d.del = "none"
-NoTasks(hs) == \A n \in hs : ~Replicates(Decide27(n, hs, {}, {}))
-S\* a check "replicates" when it hands the replicator a task with at least one candidate node. (With overlapping
-\* rules the code as found keeps calling the replicator with an EMPTY candidate list: a holder remembered from
-\* an earlier rule does not lower the shortage of a later rule - a phantom shortage that copies nothing.)
-Replicates(d) == \E k \in 1..Len(d.tasks) : Len(d.tasks[k].nodes) > 0
-Quiet(hs) == \A n \in hs : LET d == Decide27(n, hs, {}, {}) IN ~Replicates(d) /\ d.del = "none"
-NoTasks(hs) == \A n \in hs : ~Replicates(Decide27(n, hs, {}, {}))
-e\* a check "replicates" when it hands the replicator a task with at least one candidate node. (With overlapping
-\* rules the code as found keeps calling the replicator with an EMPTY candidate list: a holder remembered from
-\* an earlier rule does not lower the shortage of a later rule - a phantom shortage that copies nothing.)
-Replicates(d) == \E k \in 1..Len(d.tasks) : Len(d.tasks[k].nodes) > 0
-Quiet(hs) == \A n \in hs : LET d == Decide27(n, hs, {}, {}) IN ~Replicates(d) /\ d.del = "none"
-NoTasks(hs) == \A n \in hs : ~Replicates(Decide27(n, hs, {}, {}))
-q\* a check "replicates" when it hands the replicator a task with at least one candidate node. (With overlapping
-\* rules the code as found keeps calling the replicator with an EMPTY candidate list: a holder remembered from
-\* an earlier rule does not lower the shortage of a later rule - a phantom shortage that copies nothing.)
-Replicates(d) == \E k \in 1..Len(d.tasks) : Len(d.tasks[k].nodes) > 0
-Quiet(hs) == \A n \in hs : LET d == Decide27(n, hs, {}, {}) IN ~Replicates(d) /\ d.del = "none"
-NoTasks(hs) == \A n \in hs : ~Replicates(Decide27(n, hs, {}, {}))
-s\* a check "replicates" when it hands the replicator a task with at least one candidate node. (With overlapping
-\* rules the code as found keeps calling the replicator with an EMPTY candidate list: a holder remembered from
-\* an earlier rule does not lower the shortage of a later rule - a phantom shortage that copies nothing.)
-Replicates(d) == \E k \in 1..Len(d.tasks) : Len(d.tasks[k].nodes) > 0
-Quiet(hs) == \A n \in hs : LET d == Decide27(n, hs, {}, {}) IN ~Replicates(d) /\ d.del = "none"
-NoTasks(hs) == \A n \in hs : ~Replicates(Decide27(n, hs, {}, {}))
-(\* a check "replicates" when it hands the replicator a task with at least one candidate node. (With overlapping
-\* rules the code as found keeps calling the replicator with an EMPTY candidate list: a holder remembered from
-\* an earlier rule does not lower the shortage of a later rule - a phantom shortage that copies nothing.)
-Replicates(d) == \E k \in 1..Len(d.tasks) : Len(d.tasks[k].nodes) > 0
-Quiet(hs) == \A n \in hs : LET d == Decide27(n, hs, {}, {}) IN ~Replicates(d) /\ d.del = "none"
-NoTasks(hs) == \A n \in hs : ~Replicates(Decide27(n, hs, {}, {}))
-C\* a check "replicates" when it hands the replicator a task with at least one candidate node. (With overlapping
-\* rules the code as found keeps calling the replicator with an EMPTY candidate list: a holder remembered from
-\* an earlier rule does not lower the shortage of a later rule - a phantom shortage that copies nothing.)
-Replicates(d) == \E k \in 1..Len(d.tasks) : Len(d.tasks[k].nodes) > 0
-Quiet(hs) == \A n \in hs : LET d == Decide27(n, hs, {}, {}) IN ~Replicates(d) /\ d.del = "none"
-NoTasks(hs) == \A n \in hs : ~Replicates(Decide27(n, hs, {}, {}))
-l\* a check "replicates" when it hands the replicator a task with at least one candidate node. (With overlapping
-\* rules the code as found keeps calling the replicator with an EMPTY candidate list: a holder remembered from
-\* an earlier rule does not lower the shortage of a later rule - a phantom shortage that copies nothing.)
-Replicates(d) == \E k \in 1..Len(d.tasks) : Len(d.tasks[k].nodes) > 0
-Quiet(hs) == \A n \in hs : LET d == Decide27(n, hs, {}, {}) IN ~Replicates(d) /\ d.del = "none"
-NoTasks(hs) == \A n \in hs : ~Replicates(Decide27(n, hs, {}, {}))
-u\* a check "replicates" when it hands the replicator a task with at least one candidate node. (With overlapping
-\* rules the code as found keeps calling the replicator with an EMPTY candidate list: a holder remembered from
-\* an earlier rule does not lower the shortage of a later rule - a phantom shortage that copies nothing.)
-Replicates(d) == \E k \in 1..Len(d.tasks) : Len(d.tasks[k].nodes) > 0
-Quiet(hs) == \A n \in hs : LET d == Decide27(n, hs, {}, {}) IN ~Replicates(d) /\ d.del = "none"
-NoTasks(hs) == \A n \in hs : ~Replicates(Decide27(n, hs, {}, {}))
-s\* a check "replicates" when it hands the replicator a task with at least one candidate node. (With overlapping
-\* rules the code as found keeps calling the replicator with an EMPTY candidate list: a holder remembered from
-\* an earlier rule does not lower the shortage of a later rule - a phantom shortage that copies nothing.)
-Replicates(d) == \E k \in 1..Len(d.tasks) : Len(d.tasks[k].nodes) > 0
-Quiet(hs) == \A n \in hs : LET d == Decide27(n, hs, {}, {}) IN ~Replicates(d) /\ d.del = "none"
-NoTasks(hs) == \A n \in hs : ~Replicates(Decide27(n, hs, {}, {}))
-t\* a check "replicates" when it hands the replicator a task with at least one candidate node. (With overlapping
-\* rules the code as found keeps calling the replicator with an EMPTY candidate list: a holder remembered from
-\* an earlier rule does not lower the shortage of a later rule - a phantom shortage that copies nothing.)
-Replicates(d) == \E k \in 1..Len(d.tasks) : Len(d.tasks[k].nodes) > 0
-Quiet(hs) == \A n \in hs : LET d == Decide27(n, hs, {}, {}) IN ~Replicates(d) /\ d.del = "none"
-NoTasks(hs) == \A n \in hs : ~Replicates(Decide27(n, hs, {}, {}))
-e\* a check "replicates" when it hands the replicator a task with at least one candidate node. (With overlapping
-\* rules the code as found keeps calling the replicator with an EMPTY candidate list: a holder remembered from
-\* an earlier rule does not lower the shortage of a later rule - a phantom shortage that copies nothing.)
-Replicates(d) == \E k \in 1..Len(d.tasks) : Len(d.tasks[k].nodes) > 0
-Quiet(hs) == \A n \in hs : LET d == Decide27(n, hs, {}, {}) IN ~Replicates(d) /\ d.del = "none"
-NoTasks(hs) == \A n \in hs : ~Replicates(Decide27(n, hs, {}, {}))
-r\* a check "replicates" when it hands the replicator a task with at least one candidate node. (With overlapping
-\* rules the code as found keeps calling the replicator with an EMPTY candidate list: a holder remembered from
-\* an earlier rule does not lower the shortage of a later rule - a phantom shortage that copies nothing.)
-Replicates(d) == \E k \in 1..Len(d.tasks) : Len(d.tasks[k].nodes) > 0
-Quiet(hs) == \A n \in hs : LET d == Decide27(n, hs, {}, {}) IN ~Replicates(d) /\ d.del = "none"
-NoTasks(hs) == \A n \in hs : ~Replicates(Decide27(n, hs, {}, {}))
-,\* a check "replicates" when it hands the replicator a task with at least one candidate node. (With overlapping
-\* rules the code as found keeps calling the replicator with an EMPTY candidate list: a holder remembered from
-\* an earlier rule does not lower the shortage of a later rule - a phantom shortage that copies nothing.)
-Replicates(d) == \E k \in 1..Len(d.tasks) : Len(d.tasks[k].nodes) > 0
-Quiet(hs) == \A n \in hs : LET d == Decide27(n, hs, {}, {}) IN ~Replicates(d) /\ d.del = "none"
-NoTasks(hs) == \A n \in hs : ~Replicates(Decide27(n, hs, {}, {}))
- \* a check "replicates" when it hands the replicator a task with at least one candidate node. (With overlapping
-\* rules the code as found keeps calling the replicator with an EMPTY candidate list: a holder remembered from
-\* an earlier rule does not lower the shortage of a later rule - a phantom shortage that copies nothing.)
-Replicates(d) == \E k \in 1..Len(d.tasks) : Len(d.tasks[k].nodes) > 0
-Quiet(hs) == \A n \in hs : LET d == Decide27(n, hs, {}, {}) IN ~Replicates(d) /\ d.del = "none"
-NoTasks(hs) == \A n \in hs : ~Replicates(Decide27(n, hs, {}, {}))
-N\* a check "replicates" when it hands the replicator a task with at least one candidate node. (With overlapping
-\* rules the code as found keeps calling the replicator with an EMPTY candidate list: a holder remembered from
-\* an earlier rule does not lower the shortage of a later rule - a phantom shortage that copies nothing.)
-Replicates(d) == \E k \in 1..Len(d.tasks) : Len(d.tasks[k].nodes) > 0
-Quiet(hs) == \A n \in hs : LET d == Decide27(n, hs, {}, {}) IN ~Replicates(d) /\ d.del = "none"
-NoTasks(hs) == \A n \in hs : ~Replicates(Decide27(n, hs, {}, {}))
-)\* a check "replicates" when it hands the replicator a task with at least one candidate node. (With overlapping
-\* rules the code as found keeps calling the replicator with an EMPTY candidate list: a holder remembered from
-\* an earlier rule does not lower the shortage of a later rule - a phantom shortage that copies nothing.)
-Replicates(d) == \E k \in 1..Len(d.tasks) : Len(d.tasks[k].nodes) > 0
-Quiet(hs) == \A n \in hs : LET d == Decide27(n, hs, {}, {}) IN ~Replicates(d) /\ d.del = "none"
-NoTasks(hs) == \A n \in hs : ~Replicates(Decide27(n, hs, {}, {}))
- \* a check "replicates" when it hands the replicator a task with at least one candidate node. (With overlapping
-\* rules the code as found keeps calling the replicator with an EMPTY candidate list: a holder remembered from
-\* an earlier rule does not lower the shortage of a later rule - a phantom shortage that copies nothing.)
-Replicates(d) == \E k \in 1..Len(d.tasks) : Len(d.tasks[k].nodes) > 0
-Quiet(hs) == \A n \in hs : LET d == Decide27(n, hs, {}, {}) IN ~Replicates(d) /\ d.del = "none"
-NoTasks(hs) == \A n \in hs : ~Replicates(Decide27(n, hs, {}, {}))
-:\* a check "replicates" when it hands the replicator a task with at least one candidate node. (With overlapping
-\* rules the code as found keeps calling the replicator with an EMPTY candidate list: a holder remembered from
-\* an earlier rule does not lower the shortage of a later rule - a phantom shortage that copies nothing.)
-Replicates(d) == \E k \in 1..Len(d.tasks) : Len(d.tasks[k].nodes) > 0
-Quiet(hs) == \A n \in hs : LET d == Decide27(n, hs, {}, {}) IN ~Replicates(d) /\ d.del = "none"
-NoTasks(hs) == \A n \in hs : ~Replicates(Decide27(n, hs, {}, {}))
- \* a check "replicates" when it hands the replicator a task with at least one candidate node. (With overlapping
-\* rules the code as found keeps calling the replicator with an EMPTY candidate list: a holder remembered from
-\* an earlier rule does not lower the shortage of a later rule - a phantom shortage that copies nothing.)
-Replicates(d) == \E k \in 1..Len(d.tasks) : Len(d.tasks[k].nodes) > 0
-Quiet(hs) == \A n \in hs : LET d == Decide27(n, hs, {}, {}) IN ~Replicates(d) /\ d.del = "none"
-NoTasks(hs) == \A n \in hs : ~Replicates(Decide27(n, hs, {}, {}))
-L\* a check "replicates" when it hands the replicator a task with at least one candidate node. (With overlapping
-\* rules the code as found keeps calling the replicator with an EMPTY candidate list: a holder remembered from
-\* an earlier rule does not lower the shortage of a later rule - a phantom shortage that copies nothing.)
-Replicates(d) == \E k \in 1..Len(d.tasks) : Len(d.tasks[k].nodes) > 0
-Quiet(hs) == \A n \in hs : LET d == Decide27(n, hs, {}, {}) IN ~Replicates(d) /\ d.del = "none"
-NoTasks(hs) == \A n \in hs : ~Replicates(Decide27(n, hs, {}, {}))
-e\* a check "replicates" when it hands the replicator a task with at least one candidate node. (With overlapping
-\* rules the code as found keeps calling the replicator with an EMPTY candidate list: a holder remembered from
-\* an earlier rule does not lower the shortage of a later rule - a phantom shortage that copies nothing.)
-Replicates(d) == \E k \in 1..Len(d.tasks) : Len(d.tasks[k].nodes) > 0
-Quiet(hs) == \A n \in hs : LET d == Decide27(n, hs, {}, {}) IN ~Replicates(d) /\ d.del = "none"
-NoTasks(hs) == \A n \in hs : ~Replicates(Decide27(n, hs, {}, {}))
-n\* a check "replicates" when it hands the replicator a task with at least one candidate node. (With overlapping
-\* rules the code as found keeps calling the replicator with an EMPTY candidate list: a holder remembered from
-\* an earlier rule does not lower the shortage of a later rule - a phantom shortage that copies nothing.)
-Replicates(d) == \E k \in 1..Len(d.tasks) : Len(d.tasks[k].nodes) > 0
-Quiet(hs) == \A n \in hs : LET d == Decide27(n, hs, {}, {}) IN ~Replicates(d) /\ d.del = "none"
-NoTasks(hs) == \A n \in hs : ~Replicates(Decide27(n, hs, {}, {}))
-(\* a check "replicates" when it hands the replicator a task with at least one candidate node. (With overlapping
-\* rules the code as found keeps calling the replicator with an EMPTY candidate list: a holder remembered from
-\* an earlier rule does not lower the shortage of a later rule - a phantom shortage that copies nothing.)
-Replicates(d) == \E k \in 1..Len(d.tasks) : Len(d.tasks[k].nodes) > 0
-Quiet(hs) == \A n \in hs : LET d == Decide27(n, hs, {}, {}) IN ~Replicates(d) /\ d.del = "none"
-NoTasks(hs) == \A n \in hs : ~Replicates(Decide27(n, hs, {}, {}))
-q\* a check "replicates" when it hands the replicator a task with at least one candidate node. (With overlapping
-\* rules the code as found keeps calling the replicator with an EMPTY candidate list: a holder remembered from
-\* an earlier rule does not lower the shortage of a later rule - a phantom shortage that copies nothing.)
-Replicates(d) == \E k \in 1..Len(d.tasks) : Len(d.tasks[k].nodes) > 0
-Quiet(hs) == \A n \in hs : LET d == Decide27(n, hs, {}, {}) IN ~Replicates(d) /\ d.del = "none"
-NoTasks(hs) == \A n \in hs : ~Replicates(Decide27(n, hs, {}, {}))
-)\* a check "replicates" when it hands the replicator a task with at least one candidate node. (With overlapping
-\* rules the code as found keeps calling the replicator with an EMPTY candidate list: a holder remembered from
-\* an earlier rule does not lower the shortage of a later rule - a phantom shortage that copies nothing.)
-Replicates(d) == \E k \in 1..Len(d.tasks) : Len(d.tasks[k].nodes) > 0
-Quiet(hs) == \A n \in hs : LET d == Decide27(n, hs, {}, {}) IN ~Replicates(d) /\ d.del = "none"
-NoTasks(hs) == \A n \in hs : ~Replicates(Decide27(n, hs, {}, {}))
- \* a check "replicates" when it hands the replicator a task with at least one candidate node. (With overlapping
-\* rules the code as found keeps calling the replicator with an EMPTY candidate list: a holder remembered from
-\* an earlier rule does not lower the shortage of a later rule - a phantom shortage that copies nothing.)
-Replicates(d) == \E k \in 1..Len(d.tasks) : Len(d.tasks[k].nodes) > 0
-Quiet(hs) == \A n \in hs : LET d == Decide27(n, hs, {}, {}) IN ~Replicates(d) /\ d.del = "none"
-NoTasks(hs) == \A n \in hs : ~Replicates(Decide27(n, hs, {}, {}))
-\\* a check "replicates" when it hands the replicator a task with at least one candidate node. (With overlapping
-\* rules the code as found keeps calling the replicator with an EMPTY candidate list: a holder remembered from
-\* an earlier rule does not lower the shortage of a later rule - a phantom shortage that copies nothing.)
-Replicates(d) == \E k \in 1..Len(d.tasks) : Len(d.tasks[k].nodes) > 0
-Quiet(hs) == \A n \in hs : LET d == Decide27(n, hs, {}, {}) IN ~Replicates(d) /\ d.del = "none"
-NoTasks(hs) == \A n \in hs : ~Replicates(Decide27(n, hs, {}, {}))
-i\* a check "replicates" when it hands the replicator a task with at least one candidate node. (With overlapping
-\* rules the code as found keeps calling the replicator with an EMPTY candidate list: a holder remembered from
-\* an earlier rule does not lower the shortage of a later rule - a phantom shortage that copies nothing.)
-Replicates(d) == \E k \in 1..Len(d.tasks) : Len(d.tasks[k].nodes) > 0
-Quiet(hs) == \A n \in hs : LET d == Decide27(n, hs, {}, {}) IN ~Replicates(d) /\ d.del = "none"
-NoTasks(hs) == \A n \in hs : ~Replicates(Decide27(n, hs, {}, {}))
-n\* a check "replicates" when it hands the replicator a task with at least one candidate node. (With overlapping
-\* rules the code as found keeps calling the replicator with an EMPTY candidate list: a holder remembered from
-\* an earlier rule does not lower the shortage of a later rule - a phantom shortage that copies nothing.)
-Replicates(d) == \E k \in 1..Len(d.tasks) : Len(d.tasks[k].nodes) > 0
-Quiet(hs) == \A n \in hs : LET d == Decide27(n, hs, {}, {}) IN ~Replicates(d) /\ d.del = "none"
-NoTasks(hs) == \A n \in hs : ~Replicates(Decide27(n, hs, {}, {}))
- \* a check "replicates" when it hands the replicator a task with at least one candidate node. (With overlapping
-\* rules the code as found keeps calling the replicator with an EMPTY candidate list: a holder remembered from
-\* an earlier rule does not lower the shortage of a later rule - a phantom shortage that copies nothing.)
-Replicates(d) == \E k \in 1..Len(d.tasks) : Len(d.tasks[k].nodes) > 0
-Quiet(hs) == \A n \in hs : LET d == Decide27(n, hs, {}, {}) IN ~Replicates(d) /\ d.del = "none"
-NoTasks(hs) == \A n \in hs : ~Replicates(Decide27(n, hs, {}, {}))
-L\* a check "replicates" when it hands the replicator a task with at least one candidate node. (With overlapping
-\* rules the code as found keeps calling the replicator with an EMPTY candidate list: a holder remembered from
-\* an earlier rule does not lower the shortage of a later rule - a phantom shortage that copies nothing.)
-Replicates(d) == \E k \in 1..Len(d.tasks) : Len(d.tasks[k].nodes) > 0
-Quiet(hs) == \A n \in hs : LET d == Decide27(n, hs, {}, {}) IN ~Replicates(d) /\ d.del = "none"
-NoTasks(hs) == \A n \in hs : ~Replicates(Decide27(n, hs, {}, {}))
-i\* a check "replicates" when it hands the replicator a task with at least one candidate node. (With overlapping
-\* rules the code as found keeps calling the replicator with an EMPTY candidate list: a holder remembered from
-\* an earlier rule does not lower the shortage of a later rule - a phantom shortage that copies nothing.)
-Replicates(d) == \E k \in 1..Len(d.tasks) : Len(d.tasks[k].nodes) > 0
-Quiet(hs) == \A n \in hs : LET d == Decide27(n, hs, {}, {}) IN ~Replicates(d) /\ d.del = "none"
-NoTasks(hs) == \A n \in hs : ~Replicates(Decide27(n, hs, {}, {}))
-s\* a check "replicates" when it hands the replicator a task with at least one candidate node. (With overlapping
-\* rules the code as found keeps calling the replicator with an EMPTY candidate list: a holder remembered from
-\* an earlier rule does not lower the shortage of a later rule - a phantom shortage that copies nothing.)
-Replicates(d) == \E k \in 1..Len(d.tasks) : Len(d.tasks[k].nodes) > 0
-Quiet(hs) == \A n \in hs : LET d == Decide27(n, hs, {}, {}) IN ~Replicates(d) /\ d.del = "none"
-NoTasks(hs) == \A n \in hs : ~Replicates(Decide27(n, hs, {}, {}))
-t\* a check "replicates" when it hands the replicator a task with at least one candidate node. (With overlapping
-\* rules the code as found keeps calling the replicator with an EMPTY candidate list: a holder remembered from
-\* an earlier rule does not lower the shortage of a later rule - a phantom shortage that copies nothing.)
-Replicates(d) == \E k \in 1..Len(d.tasks) : Len(d.tasks[k].nodes) > 0
-Quiet(hs) == \A n \in hs : LET d == Decide27(n, hs, {}, {}) IN ~Replicates(d) /\ d.del = "none"
-NoTasks(hs) == \A n \in hs : ~Replicates(Decide27(n, hs, {}, {}))
-L\* a check "replicates" when it hands the replicator a task with at least one candidate node. (With overlapping
-\* rules the code as found keeps calling the replicator with an EMPTY candidate list: a holder remembered from
-\* an earlier rule does not lower the shortage of a later rule - a phantom shortage that copies nothing.)
-Replicates(d) == \E k \in 1..Len(d.tasks) : Len(d.tasks[k].nodes) > 0
-Quiet(hs) == \A n \in hs : LET d == Decide27(n, hs, {}, {}) IN ~Replicates(d) /\ d.del = "none"
-NoTasks(hs) == \A n \in hs : ~Replicates(Decide27(n, hs, {}, {}))
-e\* a check "replicates" when it hands the replicator a task with at least one candidate node. (With overlapping
-\* rules the code as found keeps calling the replicator with an EMPTY candidate list: a holder remembered from
-\* an earlier rule does not lower the shortage of a later rule - a phantom shortage that copies nothing.)
-Replicates(d) == \E k \in 1..Len(d.tasks) : Len(d.tasks[k].nodes) > 0
-Quiet(hs) == \A n \in hs : LET d == Decide27(n, hs, {}, {}) IN ~Replicates(d) /\ d.del = "none"
-NoTasks(hs) == \A n \in hs : ~Replicates(Decide27(n, hs, {}, {}))
-n\* a check "replicates" when it hands the replicator a task with at least one candidate node. (With overlapping
-\* rules the code as found keeps calling the replicator with an EMPTY candidate list: a holder remembered from
-\* an earlier rule does not lower the shortage of a later rule - a phantom shortage that copies nothing.)
-Replicates(d) == \E k \in 1..Len(d.tasks) : Len(d.tasks[k].nodes) > 0
-Quiet(hs) == \A n \in hs : LET d == Decide27(n, hs, {}, {}) IN ~Replicates(d) /\ d.del = "none"
-NoTasks(hs) == \A n \in hs : ~Replicates(Decide27(n, hs, {}, {}))
-s\* a check "replicates" when it hands the replicator a task with at least one candidate node. (With overlapping
-\* rules the code as found keeps calling the replicator with an EMPTY candidate list: a holder remembered from
-\* an earlier rule does not lower the shortage of a later rule - a phantom shortage that copies nothing.)
-Replicates(d) == \E k \in 1..Len(d.tasks) : Len(d.tasks[k].nodes) > 0
-Quiet(hs) == \A n \in hs : LET d == Decide27(n, hs, {}, {}) IN ~Replicates(d) /\ d.del = "none"
-NoTasks(hs) == \A n \in hs : ~Replicates(Decide27(n, hs, {}, {}))
-}\* a check "replicates" when it hands the replicator a task with at least one candidate node. (With overlapping
-\* rules the code as found keeps calling the replicator with an EMPTY candidate list: a holder remembered from
-\* an earlier rule does not lower the shortage of a later rule - a phantom shortage that copies nothing.)
-Replicates(d) == \E k \in 1..Len(d.tasks) : Len(d.tasks[k].nodes) > 0
-Quiet(hs) == \A n \in hs : LET d == Decide27(n, hs, {}, {}) IN ~Replicates(d) /\ d.del = "none"
-NoTasks(hs) == \A n \in hs : ~Replicates(Decide27(n, hs, {}, {}))
-
-\* a check "replicates" when it hands the replicator a task with at least one candidate node. (With overlapping
-\* rules the code as found keeps calling the replicator with an EMPTY candidate list: a holder remembered from
-\* an earlier rule does not lower the shortage of a later rule - a phantom shortage that copies nothing.)
-Replicates(d) == \E k \in 1..Len(d.tasks) : Len(d.tasks[k].nodes) > 0
-Quiet(hs) == \A n \in hs : LET d == Decide27(n, hs, {}, {}) IN ~Replicates(d) /\ d.del = "none"
-NoTasks(hs) == \A n \in hs : ~Replicates(Decide27(n, hs, {}, {}))
-C\* a check "replicates" when it hands the replicator a task with at least one candidate node. (With overlapping
-\* rules the code as found keeps calling the replicator with an EMPTY candidate list: a holder remembered from
-\* an earlier rule does not lower the shortage of a later rule - a phantom shortage that copies nothing.)
-Replicates(d) == \E k \in 1..Len(d.tasks) : Len(d.tasks[k].nodes) > 0
-Quiet(hs) == \A n \in hs : LET d == Decide27(n, hs, {}, {}) IN ~Replicates(d) /\ d.del = "none"
-NoTasks(hs) == \A n \in hs : ~Replicates(Decide27(n, hs, {}, {}))
-R\* a check "replicates" when it hands the replicator a task with at least one candidate node. (With overlapping
-\* rules the code as found keeps calling the replicator with an EMPTY candidate list: a holder remembered from
-\* an earlier rule does not lower the shortage of a later rule - a phantom shortage that copies nothing.)
-Replicates(d) == \E k \in 1..Len(d.tasks) : Len(d.tasks[k].nodes) > 0
-Quiet(hs) == \A n \in hs : LET d == Decide27(n, hs, {}, {}) IN ~Replicates(d) /\ d.del = "none"
-NoTasks(hs) == \A n \in hs : ~Replicates(Decide27(n, hs, {}, {}))
-u\* a check "replicates" when it hands the replicator a task with at least one candidate node. (With overlapping
-\* rules the code as found keeps calling the replicator with an EMPTY candidate list: a holder remembered from
-\* an earlier rule does not lower the shortage of a later rule - a phantom shortage that copies nothing.)
-Replicates(d) == \E k \in 1..Len(d.tasks) : Len(d.tasks[k].nodes) > 0
-Quiet(hs) == \A n \in hs : LET d == Decide27(n, hs, {}, {}) IN ~Replicates(d) /\ d.del = "none"
-NoTasks(hs) == \A n \in hs : ~Replicates(Decide27(n, hs, {}, {}))
-l\* a check "replicates" when it hands the replicator a task with at least one candidate node. (With overlapping
-\* rules the code as found keeps calling the replicator with an EMPTY candidate list: a holder remembered from
-\* an earlier rule does not lower the shortage of a later rule - a phantom shortage that copies nothing.)
-Replicates(d) == \E k \in 1..Len(d.tasks) : Len(d.tasks[k].nodes) > 0
-Quiet(hs) == \A n \in hs : LET d == Decide27(n, hs, {}, {}) IN ~Replicates(d) /\ d.del = "none"
-NoTasks(hs) == \A n \in hs : ~Replicates(Decide27(n, hs, {}, {}))
-e\* a check "replicates" when it hands the replicator a task with at least one candidate node. (With overlapping
-\* rules the code as found keeps calling the replicator with an EMPTY candidate list: a holder remembered from
-\* an earlier rule does not lower the shortage of a later rule - a phantom shortage that copies nothing.)
-Replicates(d) == \E k \in 1..Len(d.tasks) : Len(d.tasks[k].nodes) > 0
-Quiet(hs) == \A n \in hs : LET d == Decide27(n, hs, {}, {}) IN ~Replicates(d) /\ d.del = "none"
-NoTasks(hs) == \A n \in hs : ~Replicates(Decide27(n, hs, {}, {}))
-s\* a check "replicates" when it hands the replicator a task with at least one candidate node. (With overlapping
-\* rules the code as found keeps calling the replicator with an EMPTY candidate list: a holder remembered from
-\* an earlier rule does not lower the shortage of a later rule - a phantom shortage that copies nothing.)
-Replicates(d) == \E k \in 1..Len(d.tasks) : Len(d.tasks[k].nodes) > 0
-Quiet(hs) == \A n \in hs : LET d == Decide27(n, hs, {}, {}) IN ~Replicates(d) /\ d.del = "none"
-NoTasks(hs) == \A n \in hs : ~Replicates(Decide27(n, hs, {}, {}))
- \* a check "replicates" when it hands the replicator a task with at least one candidate node. (With overlapping
-\* rules the code as found keeps calling the replicator with an EMPTY candidate list: a holder remembered from
-\* an earlier rule does not lower the shortage of a later rule - a phantom shortage that copies nothing.)
-Replicates(d) == \E k \in 1..Len(d.tasks) : Len(d.tasks[k].nodes) > 0
-Quiet(hs) == \A n \in hs : LET d == Decide27(n, hs, {}, {}) IN ~Replicates(d) /\ d.del = "none"
-NoTasks(hs) == \A n \in hs : ~Replicates(Decide27(n, hs, {}, {}))
-=\* a check "replicates" when it hands the replicator a task with at least one candidate node. (With overlapping
-\* rules the code as found keeps calling the replicator with an EMPTY candidate list: a holder remembered from
-\* an earlier rule does not lower the shortage of a later rule - a phantom shortage that copies nothing.)
-Replicates(d) == \E k \in 1..Len(d.tasks) : Len(d.tasks[k].nodes) > 0
-Quiet(hs) == \A n \in hs : LET d == Decide27(n, hs, {}, {}) IN ~Replicates(d) /\ d.del = "none"
-NoTasks(hs) == \A n \in hs : ~Replicates(Decide27(n, hs, {}, {}))
-=\* a check "replicates" when it hands the replicator a task with at least one candidate node. (With overlapping
-\* rules the code as found keeps calling the replicator with an EMPTY candidate list: a holder remembered from
-\* an earlier rule does not lower the shortage of a later rule - a phantom shortage that copies nothing.)
-Replicates(d) == \E k \in 1..Len(d.tasks) : Len(d.tasks[k].nodes) > 0
-Quiet(hs) == \A n \in hs : LET d == Decide27(n, hs, {}, {}) IN ~Replicates(d) /\ d.del = "none"
-NoTasks(hs) == \A n \in hs : ~Replicates(Decide27(n, hs, {}, {}))
- \* a check "replicates" when it hands the replicator a task with at least one candidate node. (With overlapping
-\* rules the code as found keeps calling the replicator with an EMPTY candidate list: a holder remembered from
-\* an earlier rule does not lower the shortage of a later rule - a phantom shortage that copies nothing.)
-Replicates(d) == \E k \in 1..Len(d.tasks) : Len(d.tasks[k].nodes) > 0
-Quiet(hs) == \A n \in hs : LET d == Decide27(n, hs, {}, {}) IN ~Replicates(d) /\ d.del = "none"
-NoTasks(hs) == \A n \in hs : ~Replicates(Decide27(n, hs, {}, {}))
-U\* a check "replicates" when it hands the replicator a task with at least one candidate node. (With overlapping
-\* rules the code as found keeps calling the replicator with an EMPTY candidate list: a holder remembered from
-\* an earlier rule does not lower the shortage of a later rule - a phantom shortage that copies nothing.)
-Replicates(d) == \E k \in 1..Len(d.tasks) : Len(d.tasks[k].nodes) > 0
-Quiet(hs) == \A n \in hs : LET d == Decide27(n, hs, {}, {}) IN ~Replicates(d) /\ d.del = "none"
-NoTasks(hs) == \A n \in hs : ~Replicates(Decide27(n, hs, {}, {}))
-N\* a check "replicates" when it hands the replicator a task with at least one candidate node. (With overlapping
-\* rules the code as found keeps calling the replicator with an EMPTY candidate list: a holder remembered from
-\* an earlier rule does not lower the shortage of a later rule - a phantom shortage that copies nothing.)
-Replicates(d) == \E k \in 1..Len(d.tasks) : Len(d.tasks[k].nodes) > 0
-Quiet(hs) == \A n \in hs : LET d == Decide27(n, hs, {}, {}) IN ~Replicates(d) /\ d.del = "none"
-NoTasks(hs) == \A n \in hs : ~Replicates(Decide27(n, hs, {}, {}))
-I\* a check "replicates" when it hands the replicator a task with at least one candidate node. (With overlapping
-\* rules the code as found keeps calling the replicator with an EMPTY candidate list: a holder remembered from
-\* an earlier rule does not lower the shortage of a later rule - a phantom shortage that copies nothing.)
-Replicates(d) == \E k \in 1..Len(d.tasks) : Len(d.tasks[k].nodes) > 0
-Quiet(hs) == \A n \in hs : LET d == Decide27(n, hs, {}, {}) IN ~Replicates(d) /\ d.del = "none"
-NoTasks(hs) == \A n \in hs : ~Replicates(Decide27(n, hs, {}, {}))
-O\* a check "replicates" when it hands the replicator a task with at least one candidate node. (With overlapping
-\* rules the code as found keeps calling the replicator with an EMPTY candidate list: a holder remembered from
-\* an earlier rule does not lower the shortage of a later rule - a phantom shortage that copies nothing.)
-Replicates(d) == \E k \in 1..Len(d.tasks) : Len(d.tasks[k].nodes) > 0
-Quiet(hs) == \A n \in hs : LET d == Decide27(n, hs, {}, {}) IN ~Replicates(d) /\ d.del = "none"
-NoTasks(hs) == \A n \in hs : ~Replicates(Decide27(n, hs, {}, {}))
-N\* a check "replicates" when it hands the replicator a task with at least one candidate node. (With overlapping
-\* rules the code as found keeps calling the replicator with an EMPTY candidate list: a holder remembered from
-\* an earlier rule does not lower the shortage of a later rule - a phantom shortage that copies nothing.)
-Replicates(d) == \E k \in 1..Len(d.tasks) : Len(d.tasks[k].nodes) > 0
-Quiet(hs) == \A n \in hs : LET d == Decide27(n, hs, {}, {}) IN ~Replicates(d) /\ d.del = "none"
-NoTasks(hs) == \A n \in hs : ~Replicates(Decide27(n, hs, {}, {}))
- \* a check "replicates" when it hands the replicator a task with at least one candidate node. (With overlapping
-\* rules the code as found keeps calling the replicator with an EMPTY candidate list: a holder remembered from
-\* an earlier rule does not lower the shortage of a later rule - a phantom shortage that copies nothing.)
-Replicates(d) == \E k \in 1..Len(d.tasks) : Len(d.tasks[k].nodes) > 0
-Quiet(hs) == \A n \in hs : LET d == Decide27(n, hs, {}, {}) IN ~Replicates(d) /\ d.del = "none"
-NoTasks(hs) == \A n \in hs : ~Replicates(Decide27(n, hs, {}, {}))
-{\* a check "replicates" when it hands the replicator a task with at least one candidate node. (With overlapping
-\* rules the code as found keeps calling the replicator with an EMPTY candidate list: a holder remembered from
-\* an earlier rule does not lower the shortage of a later rule - a phantom shortage that copies nothing.)
-Replicates(d) == \E k \in 1..Len(d.tasks) : Len(d.tasks[k].nodes) > 0
-Quiet(hs) == \A n \in hs : LET d == Decide27(n, hs, {}, {}) IN ~Replicates(d) /\ d.del = "none"
-NoTasks(hs) == \A n \in hs : ~Replicates(Decide27(n, hs, {}, {}))
-{\* a check "replicates" when it hands the replicator a task with at least one candidate node. (With overlapping
-\* rules the code as found keeps calling the replicator with an EMPTY candidate list: a holder remembered from
-\* an earlier rule does not lower the shortage of a later rule - a phantom shortage that copies nothing.)
-Replicates(d) == \E k \in 1..Len(d.tasks) : Len(d.tasks[k].nodes) > 0
-Quiet(hs) == \A n \in hs : LET d == Decide27(n, hs, {}, {}) IN ~Replicates(d) /\ d.del = "none"
-NoTasks(hs) == \A n \in hs : ~Replicates(Decide27(n, hs, {}, {}))
-[\* a check "replicates" when it hands the replicator a task with at least one candidate node. (With overlapping
-\* rules the code as found keeps calling the replicator with an EMPTY candidate list: a holder remembered from
-\* an earlier rule does not lower the shortage of a later rule - a phantom shortage that copies nothing.)
-Replicates(d) == \E k \in 1..Len(d.tasks) : Len(d.tasks[k].nodes) > 0
-Quiet(hs) == \A n \in hs : LET d == Decide27(n, hs, {}, {}) IN ~Replicates(d) /\ d.del = "none"
-NoTasks(hs) == \A n \in hs : ~Replicates(Decide27(n, hs, {}, {}))
-n\* a check "replicates" when it hands the replicator a task with at least one candidate node. (With overlapping
-\* rules the code as found keeps calling the replicator with an EMPTY candidate list: a holder remembered from
-\* an earlier rule does not lower the shortage of a later rule - a phantom shortage that copies nothing.)
-Replicates(d) == \E k \in 1..Len(d.tasks) : Len(d.tasks[k].nodes) > 0
-Quiet(hs) == \A n \in hs : LET d == Decide27(n, hs, {}, {}) IN ~Replicates(d) /\ d.del = "none"
-NoTasks(hs) == \A n \in hs : ~Replicates(Decide27(n, hs, {}, {}))
-o\* a check "replicates" when it hands the replicator a task with at least one candidate node. (With overlapping
-\* rules the code as found keeps calling the replicator with an EMPTY candidate list: a holder remembered from
-\* an earlier rule does not lower the shortage of a later rule - a phantom shortage that copies nothing.)
-Replicates(d) == \E k \in 1..Len(d.tasks) : Len(d.tasks[k].nodes) > 0
-Quiet(hs) == \A n \in hs : LET d == Decide27(n, hs, {}, {}) IN ~Replicates(d) /\ d.del = "none"
-NoTasks(hs) == \A n \in hs : ~Replicates(Decide27(n, hs, {}, {}))
-d\* a check "replicates" when it hands the replicator a task with at least one candidate node. (With overlapping
-\* rules the code as found keeps calling the replicator with an EMPTY candidate list: a holder remembered from
-\* an earlier rule does not lower the shortage of a later rule - a phantom shortage that copies nothing.)
-Replicates(d) == \E k \in 1..Len(d.tasks) : Len(d.tasks[k].nodes) > 0
-Quiet(hs) == \A n \in hs : LET d == Decide27(n, hs, {}, {}) IN ~Replicates(d) /\ d.del = "none"
-NoTasks(hs) == \A n \in hs : ~Replicates(Decide27(n, hs, {}, {}))
-e\* a check "replicates" when it hands the replicator a task with at least one candidate node. (With overlapping
-\* rules the code as found keeps calling the replicator with an EMPTY candidate list: a holder remembered from
-\* an earlier rule does not lower the shortage of a later rule - a phantom shortage that copies nothing.)
-Replicates(d) == \E k \in 1..Len(d.tasks) : Len(d.tasks[k].nodes) > 0
-Quiet(hs) == \A n \in hs : LET d == Decide27(n, hs, {}, {}) IN ~Replicates(d) /\ d.del = "none"
-NoTasks(hs) == \A n \in hs : ~Replicates(Decide27(n, hs, {}, {}))
-s\* a check "replicates" when it hands the replicator a task with at least one candidate node. (With overlapping
-\* rules the code as found keeps calling the replicator with an EMPTY candidate list: a holder remembered from
-\* an earlier rule does not lower the shortage of a later rule - a phantom shortage that copies nothing.)
-Replicates(d) == \E k \in 1..Len(d.tasks) : Len(d.tasks[k].nodes) > 0
-Quiet(hs) == \A n \in hs : LET d == Decide27(n, hs, {}, {}) IN ~Replicates(d) /\ d.del = "none"
-NoTasks(hs) == \A n \in hs : ~Replicates(Decide27(n, hs, {}, {}))
- \* a check "replicates" when it hands the replicator a task with at least one candidate node. (With overlapping
-\* rules the code as found keeps calling the replicator with an EMPTY candidate list: a holder remembered from
-\* an earlier rule does not lower the shortage of a later rule - a phantom shortage that copies nothing.)
-Replicates(d) == \E k \in 1..Len(d.tasks) : Len(d.tasks[k].nodes) > 0
-Quiet(hs) == \A n \in hs : LET d == Decide27(n, hs, {}, {}) IN ~Replicates(d) /\ d.del = "none"
-NoTasks(hs) == \A n \in hs : ~Replicates(Decide27(n, hs, {}, {}))
-|\* a check "replicates" when it hands the replicator a task with at least one candidate node. (With overlapping
-\* rules the code as found keeps calling the replicator with an EMPTY candidate list: a holder remembered from
-\* an earlier rule does not lower the shortage of a later rule - a phantom shortage that copies nothing.)
-Replicates(d) == \E k \in 1..Len(d.tasks) : Len(d.tasks[k].nodes) > 0
-Quiet(hs) == \A n \in hs : LET d == Decide27(n, hs, {}, {}) IN ~Replicates(d) /\ d.del = "none"
-NoTasks(hs) == \A n \in hs : ~Replicates(Decide27(n, hs, {}, {}))
--\* a check "replicates" when it hands the replicator a task with at least one candidate node. (With overlapping
-\* rules the code as found keeps calling the replicator with an EMPTY candidate list: a holder remembered from
-\* an earlier rule does not lower the shortage of a later rule - a phantom shortage that copies nothing.)
-Replicates(d) == \E k \in 1..Len(d.tasks) : Len(d.tasks[k].nodes) > 0
-Quiet(hs) == \A n \in hs : LET d == Decide27(n, hs, {}, {}) IN ~Replicates(d) /\ d.del = "none"
-NoTasks(hs) == \A n \in hs : ~Replicates(Decide27(n, hs, {}, {}))
->\* a check "replicates" when it hands the replicator a task with at least one candidate node. (With overlapping
-\* rules the code as found keeps calling the replicator with an EMPTY candidate list: a holder remembered from
-\* an earlier rule does not lower the shortage of a later rule - a phantom shortage that copies nothing.)
-Replicates(d) == \E k \in 1..Len(d.tasks) : Len(d.tasks[k].nodes) > 0
-Quiet(hs) == \A n \in hs : LET d == Decide27(n, hs, {}, {}) IN ~Replicates(d) /\ d.del = "none"
-NoTasks(hs) == \A n \in hs : ~Replicates(Decide27(n, hs, {}, {}))
- \* a check "replicates" when it hands the replicator a task with at least one candidate node. (With overlapping
-\* rules the code as found keeps calling the replicator with an EMPTY candidate list: a holder remembered from
-\* an earlier rule does not lower the shortage of a later rule - a phantom shortage that copies nothing.)
-Replicates(d) == \E k \in 1..Len(d.tasks) : Len(d.tasks[k].nodes) > 0
-Quiet(hs) == \A n \in hs : LET d == Decide27(n, hs, {}, {}) IN ~Replicates(d) /\ d.del = "none"
-NoTasks(hs) == \A n \in hs : ~Replicates(Decide27(n, hs, {}, {}))
-q\* a check "replicates" when it hands the replicator a task with at least one candidate node. (With overlapping
-\* rules the code as found keeps calling the replicator with an EMPTY candidate list: a holder remembered from
-\* an earlier rule does not lower the shortage of a later rule - a phantom shortage that copies nothing.)
-Replicates(d) == \E k \in 1..Len(d.tasks) : Len(d.tasks[k].nodes) > 0
-Quiet(hs) == \A n \in hs : LET d == Decide27(n, hs, {}, {}) IN ~Replicates(d) /\ d.del = "none"
-NoTasks(hs) == \A n \in hs : ~Replicates(Decide27(n, hs, {}, {}))
-,\* a check "replicates" when it hands the replicator a task with at least one candidate node. (With overlapping
-\* rules the code as found keeps calling the replicator with an EMPTY candidate list: a holder remembered from
-\* an earlier rule does not lower the shortage of a later rule - a phantom shortage that copies nothing.)
-Replicates(d) == \E k \in 1..Len(d.tasks) : Len(d.tasks[k].nodes) > 0
-Quiet(hs) == \A n \in hs : LET d == Decide27(n, hs, {}, {}) IN ~Replicates(d) /\ d.del = "none"
-NoTasks(hs) == \A n \in hs : ~Replicates(Decide27(n, hs, {}, {}))
- \* a check "replicates" when it hands the replicator a task with at least one candidate node. (With overlapping
-\* rules the code as found keeps calling the replicator with an EMPTY candidate list: a holder remembered from
-\* an earlier rule does not lower the shortage of a later rule - a phantom shortage that copies nothing.)
-Replicates(d) == \E k \in 1..Len(d.tasks) : Len(d.tasks[k].nodes) > 0
-Quiet(hs) == \A n \in hs : LET d == Decide27(n, hs, {}, {}) IN ~Replicates(d) /\ d.del = "none"
-NoTasks(hs) == \A n \in hs : ~Replicates(Decide27(n, hs, {}, {}))
-n\* a check "replicates" when it hands the replicator a task with at least one candidate node. (With overlapping
-\* rules the code as found keeps calling the replicator with an EMPTY candidate list: a holder remembered from
-\* an earlier rule does not lower the shortage of a later rule - a phantom shortage that copies nothing.)
-Replicates(d) == \E k \in 1..Len(d.tasks) : Len(d.tasks[k].nodes) > 0
-Quiet(hs) == \A n \in hs : LET d == Decide27(n, hs, {}, {}) IN ~Replicates(d) /\ d.del = "none"
-NoTasks(hs) == \A n \in hs : ~Replicates(Decide27(n, hs, {}, {}))
- \* a check "replicates" when it hands the replicator a task with at least one candidate node. (With overlapping
-\* rules the code as found keeps calling the replicator with an EMPTY candidate list: a holder remembered from
-\* an earlier rule does not lower the shortage of a later rule - a phantom shortage that copies nothing.)
-Replicates(d) == \E k \in 1..Len(d.tasks) : Len(d.tasks[k].nodes) > 0
-Quiet(hs) == \A n \in hs : LET d == Decide27(n, hs, {}, {}) IN ~Replicates(d) /\ d.del = "none"
-NoTasks(hs) == \A n \in hs : ~Replicates(Decide27(n, hs, {}, {}))
-|\* a check "replicates" when it hands the replicator a task with at least one candidate node. (With overlapping
-\* rules the code as found keeps calling the replicator with an EMPTY candidate list: a holder remembered from
-\* an earlier rule does not lower the shortage of a later rule - a phantom shortage that copies nothing.)
-Replicates(d) == \E k \in 1..Len(d.tasks) : Len(d.tasks[k].nodes) > 0
-Quiet(hs) == \A n \in hs : LET d == Decide27(n, hs, {}, {}) IN ~Replicates(d) /\ d.del = "none"
-NoTasks(hs) == \A n \in hs : ~Replicates(Decide27(n, hs, {}, {}))
--\* a check "replicates" when it hands the replicator a task with at least one candidate node. (With overlapping
-\* rules the code as found keeps calling the replicator with an EMPTY candidate list: a holder remembered from
-\* an earlier rule does not lower the shortage of a later rule - a phantom shortage that copies nothing.)
-Replicates(d) == \E k \in 1..Len(d.tasks) : Len(d.tasks[k].nodes) > 0
-Quiet(hs) == \A n \in hs : LET d == Decide27(n, hs, {}, {}) IN ~Replicates(d) /\ d.del = "none"
-NoTasks(hs) == \A n \in hs : ~Replicates(Decide27(n, hs, {}, {}))
->\* a check "replicates" when it hands the replicator a task with at least one candidate node. (With overlapping
-\* rules the code as found keeps calling the replicator with an EMPTY candidate list: a holder remembered from
-\* an earlier rule does not lower the shortage of a later rule - a phantom shortage that copies nothing.)
-Replicates(d) == \E k \in 1..Len(d.tasks) : Len(d.tasks[k].nodes) > 0
-Quiet(hs) == \A n \in hs : LET d == Decide27(n, hs, {}, {}) IN ~Replicates(d) /\ d.del = "none"
-NoTasks(hs) == \A n \in hs : ~Replicates(Decide27(n, hs, {}, {}))
- \* a check "replicates" when it hands the replicator a task with at least one candidate node. (With overlapping
-\* rules the code as found keeps calling the replicator with an EMPTY candidate list: a holder remembered from
-\* an earlier rule does not lower the shortage of a later rule - a phantom shortage that copies nothing.)
-Replicates(d) == \E k \in 1..Len(d.tasks) : Len(d.tasks[k].nodes) > 0
-Quiet(hs) == \A n \in hs : LET d == Decide27(n, hs, {}, {}) IN ~Replicates(d) /\ d.del = "none"
-NoTasks(hs) == \A n \in hs : ~Replicates(Decide27(n, hs, {}, {}))
-n\* a check "replicates" when it hands the replicator a task with at least one candidate node. (With overlapping
-\* rules the code as found keeps calling the replicator with an EMPTY candidate list: a holder remembered from
-\* an earlier rule does not lower the shortage of a later rule - a phantom shortage that copies nothing.)
-Replicates(d) == \E k \in 1..Len(d.tasks) : Len(d.tasks[k].nodes) > 0
-Quiet(hs) == \A n \in hs : LET d == Decide27(n, hs, {}, {}) IN ~Replicates(d) /\ d.del = "none"
-NoTasks(hs) == \A n \in hs : ~Replicates(Decide27(n, hs, {}, {}))
-]\* a check "replicates" when it hands the replicator a task with at least one candidate node. (With overlapping
-\* rules the code as found keeps calling the replicator with an EMPTY candidate list: a holder remembered from
-\* an earlier rule does not lower the shortage of a later rule - a phantom shortage that copies nothing.)
-Replicates(d) == \E k \in 1..Len(d.tasks) : Len(d.tasks[k].nodes) > 0
-Quiet(hs) == \A n \in hs : LET d == Decide27(n, hs, {}, {}) IN ~Replicates(d) /\ d.del = "none"
-NoTasks(hs) == \A n \in hs : ~Replicates(Decide27(n, hs, {}, {}))
- \* a check "replicates" when it hands the replicator a task with at least one candidate node. (With overlapping
-\* rules the code as found keeps calling the replicator with an EMPTY candidate list: a holder remembered from
-\* an earlier rule does not lower the shortage of a later rule - a phantom shortage that copies nothing.)
-Replicates(d) == \E k \in 1..Len(d.tasks) : Len(d.tasks[k].nodes) > 0
-Quiet(hs) == \A n \in hs : LET d == Decide27(n, hs, {}, {}) IN ~Replicates(d) /\ d.del = "none"
-NoTasks(hs) == \A n \in hs : ~Replicates(Decide27(n, hs, {}, {}))
-:\* a check "replicates" when it hands the replicator a task with at least one candidate node. (With overlapping
-\* rules the code as found keeps calling the replicator with an EMPTY candidate list: a holder remembered from
-\* an earlier rule does not lower the shortage of a later rule - a phantom shortage that copies nothing.)
-Replicates(d) == \E k \in 1..Len(d.tasks) : Len(d.tasks[k].nodes) > 0
-Quiet(hs) == \A n \in hs : LET d == Decide27(n, hs, {}, {}) IN ~Replicates(d) /\ d.del = "none"
-NoTasks(hs) == \A n \in hs : ~Replicates(Decide27(n, hs, {}, {}))
- \* a check "replicates" when it hands the replicator a task with at least one candidate node. (With overlapping
-\* rules the code as found keeps calling the replicator with an EMPTY candidate list: a holder remembered from
-\* an earlier rule does not lower the shortage of a later rule - a phantom shortage that copies nothing.)
-Replicates(d) == \E k \in 1..Len(d.tasks) : Len(d.tasks[k].nodes) > 0
-Quiet(hs) == \A n \in hs : LET d == Decide27(n, hs, {}, {}) IN ~Replicates(d) /\ d.del = "none"
-NoTasks(hs) == \A n \in hs : ~Replicates(Decide27(n, hs, {}, {}))
-n\* a check "replicates" when it hands the replicator a task with at least one candidate node. (With overlapping
-\* rules the code as found keeps calling the replicator with an EMPTY candidate list: a holder remembered from
-\* an earlier rule does not lower the shortage of a later rule - a phantom shortage that copies nothing.)
-Replicates(d) == \E k \in 1..Len(d.tasks) : Len(d.tasks[k].nodes) > 0
-Quiet(hs) == \A n \in hs : LET d == Decide27(n, hs, {}, {}) IN ~Replicates(d) /\ d.del = "none"
-NoTasks(hs) == \A n \in hs : ~Replicates(Decide27(n, hs, {}, {}))
- \* a check "replicates" when it hands the replicator a task with at least one candidate node. (With overlapping
-\* rules the code as found keeps calling the replicator with an EMPTY candidate list: a holder remembered from
-\* an earlier rule does not lower the shortage of a later rule - a phantom shortage that copies nothing.)
-Replicates(d) == \E k \in 1..Len(d.tasks) : Len(d.tasks[k].nodes) > 0
-Quiet(hs) == \A n \in hs : LET d == Decide27(n, hs, {}, {}) IN ~Replicates(d) /\ d.del = "none"
-NoTasks(hs) == \A n \in hs : ~Replicates(Decide27(n, hs, {}, {}))
-\\* a check "replicates" when it hands the replicator a task with at least one candidate node. (With overlapping
-\* rules the code as found keeps calling the replicator with an EMPTY candidate list: a holder remembered from
-\* an earlier rule does not lower the shortage of a later rule - a phantom shortage that copies nothing.)
-Replicates(d) == \E k \in 1..Len(d.tasks) : Len(d.tasks[k].nodes) > 0
-Quiet(hs) == \A n \in hs : LET d == Decide27(n, hs, {}, {}) IN ~Replicates(d) /\ d.del = "none"
-NoTasks(hs) == \A n \in hs : ~Replicates(Decide27(n, hs, {}, {}))
-i\* a check "replicates" when it hands the replicator a task with at least one candidate node. (With overlapping
-\* rules the code as found keeps calling the replicator with an EMPTY candidate list: a holder remembered from
-\* an earlier rule does not lower the shortage of a later rule - a phantom shortage that copies nothing.)
-Replicates(d) == \E k \in 1..Len(d.tasks) : Len(d.tasks[k].nodes) > 0
-Quiet(hs) == \A n \in hs : LET d == Decide27(n, hs, {}, {}) IN ~Replicates(d) /\ d.del = "none"
-NoTasks(hs) == \A n \in hs : ~Replicates(Decide27(n, hs, {}, {}))
-n\* a check "replicates" when it hands the replicator a task with at least one candidate node. (With overlapping
-\* rules the code as found keeps calling the replicator with an EMPTY candidate list: a holder remembered from
-\* an earlier rule does not lower the shortage of a later rule - a phantom shortage that copies nothing.)
-Replicates(d) == \E k \in 1..Len(d.tasks) : Len(d.tasks[k].nodes) > 0
-Quiet(hs) == \A n \in hs : LET d == Decide27(n, hs, {}, {}) IN ~Replicates(d) /\ d.del = "none"
-NoTasks(hs) == \A n \in hs : ~Replicates(Decide27(n, hs, {}, {}))
- \* a check "replicates" when it hands the replicator a task with at least one candidate node. (With overlapping
-\* rules the code as found keeps calling the replicator with an EMPTY candidate list: a holder remembered from
-\* an earlier rule does not lower the shortage of a later rule - a phantom shortage that copies nothing.)
-Replicates(d) == \E k \in 1..Len(d.tasks) : Len(d.tasks[k].nodes) > 0
-Quiet(hs) == \A n \in hs : LET d == Decide27(n, hs, {}, {}) IN ~Replicates(d) /\ d.del = "none"
-NoTasks(hs) == \A n \in hs : ~Replicates(Decide27(n, hs, {}, {}))
-{\* a check "replicates" when it hands the replicator a task with at least one candidate node. (With overlapping
-\* rules the code as found keeps calling the replicator with an EMPTY candidate list: a holder remembered from
-\* an earlier rule does not lower the shortage of a later rule - a phantom shortage that copies nothing.)
-Replicates(d) == \E k \in 1..Len(d.tasks) : Len(d.tasks[k].nodes) > 0
-Quiet(hs) == \A n \in hs : LET d == Decide27(n, hs, {}, {}) IN ~Replicates(d) /\ d.del = "none"
-NoTasks(hs) == \A n \in hs : ~Replicates(Decide27(n, hs, {}, {}))
-x\* a check "replicates" when it hands the replicator a task with at least one candidate node. (With overlapping
-\* rules the code as found keeps calling the replicator with an EMPTY candidate list: a holder remembered from
-\* an earlier rule does not lower the shortage of a later rule - a phantom shortage that copies nothing.)
-Replicates(d) == \E k \in 1..Len(d.tasks) : Len(d.tasks[k].nodes) > 0
-Quiet(hs) == \A n \in hs : LET d == Decide27(n, hs, {}, {}) IN ~Replicates(d) /\ d.del = "none"
-NoTasks(hs) == \A n \in hs : ~Replicates(Decide27(n, hs, {}, {}))
- \* a check "replicates" when it hands the replicator a task with at least one candidate node. (With overlapping
-\* rules the code as found keeps calling the replicator with an EMPTY candidate list: a holder remembered from
-\* an earlier rule does not lower the shortage of a later rule - a phantom shortage that copies nothing.)
-Replicates(d) == \E k \in 1..Len(d.tasks) : Len(d.tasks[k].nodes) > 0
-Quiet(hs) == \A n \in hs : LET d == Decide27(n, hs, {}, {}) IN ~Replicates(d) /\ d.del = "none"
-NoTasks(hs) == \A n \in hs : ~Replicates(Decide27(n, hs, {}, {}))
-\\* a check "replicates" when it hands the replicator a task with at least one candidate node. (With overlapping
-\* rules the code as found keeps calling the replicator with an EMPTY candidate list: a holder remembered from
-\* an earlier rule does not lower the shortage of a later rule - a phantom shortage that copies nothing.)
-Replicates(d) == \E k \in 1..Len(d.tasks) : Len(d.tasks[k].nodes) > 0
-Quiet(hs) == \A n \in hs : LET d == Decide27(n, hs, {}, {}) IN ~Replicates(d) /\ d.del = "none"
-NoTasks(hs) == \A n \in hs : ~Replicates(Decide27(n, hs, {}, {}))
-i\* a check "replicates" when it hands the replicator a task with at least one candidate node. (With overlapping
-\* rules the code as found keeps calling the replicator with an EMPTY candidate list: a holder remembered from
-\* an earlier rule does not lower the shortage of a later rule - a phantom shortage that copies nothing.)
-Replicates(d) == \E k \in 1..Len(d.tasks) : Len(d.tasks[k].nodes) > 0
-Quiet(hs) == \A n \in hs : LET d == Decide27(n, hs, {}, {}) IN ~Replicates(d) /\ d.del = "none"
-NoTasks(hs) == \A n \in hs : ~Replicates(Decide27(n, hs, {}, {}))
-n\* a check "replicates" when it hands the replicator a task with at least one candidate node. (With overlapping
-\* rules the code as found keeps calling the replicator with an EMPTY candidate list: a holder remembered from
-\* an earlier rule does not lower the shortage of a later rule - a phantom shortage that copies nothing.)
-Replicates(d) == \E k \in 1..Len(d.tasks) : Len(d.tasks[k].nodes) > 0
-Quiet(hs) == \A n \in hs : LET d == Decide27(n, hs, {}, {}) IN ~Replicates(d) /\ d.del = "none"
-NoTasks(hs) == \A n \in hs : ~Replicates(Decide27(n, hs, {}, {}))
- \* a check "replicates" when it hands the replicator a task with at least one candidate node. (With overlapping
-\* rules the code as found keeps calling the replicator with an EMPTY candidate list: a holder remembered from
-\* an earlier rule does not lower the shortage of a later rule - a phantom shortage that copies nothing.)
-Replicates(d) == \E k \in 1..Len(d.tasks) : Len(d.tasks[k].nodes) > 0
-Quiet(hs) == \A n \in hs : LET d == Decide27(n, hs, {}, {}) IN ~Replicates(d) /\ d.del = "none"
-NoTasks(hs) == \A n \in hs : ~Replicates(Decide27(n, hs, {}, {}))
-R\* a check "replicates" when it hands the replicator a task with at least one candidate node. (With overlapping
-\* rules the code as found keeps calling the replicator with an EMPTY candidate list: a holder remembered from
-\* an earlier rule does not lower the shortage of a later rule - a phantom shortage that copies nothing.)
-Replicates(d) == \E k \in 1..Len(d.tasks) : Len(d.tasks[k].nodes) > 0
-Quiet(hs) == \A n \in hs : LET d == Decide27(n, hs, {}, {}) IN ~Replicates(d) /\ d.del = "none"
-NoTasks(hs) == \A n \in hs : ~Replicates(Decide27(n, hs, {}, {}))
-e\* a check "replicates" when it hands the replicator a task with at least one candidate node. (With overlapping
-\* rules the code as found keeps calling the replicator with an EMPTY candidate list: a holder remembered from
-\* an earlier rule does not lower the shortage of a later rule - a phantom shortage that copies nothing.)
-Replicates(d) == \E k \in 1..Len(d.tasks) : Len(d.tasks[k].nodes) > 0
-Quiet(hs) == \A n \in hs : LET d == Decide27(n, hs, {}, {}) IN ~Replicates(d) /\ d.del = "none"
-NoTasks(hs) == \A n \in hs : ~Replicates(Decide27(n, hs, {}, {}))
-p\* a check "replicates" when it hands the replicator a task with at least one candidate node. (With overlapping
-\* rules the code as found keeps calling the replicator with an EMPTY candidate list: a holder remembered from
-\* an earlier rule does not lower the shortage of a later rule - a phantom shortage that copies nothing.)
-Replicates(d) == \E k \in 1..Len(d.tasks) : Len(d.tasks[k].nodes) > 0
-Quiet(hs) == \A n \in hs : LET d == Decide27(n, hs, {}, {}) IN ~Replicates(d) /\ d.del = "none"
-NoTasks(hs) == \A n \in hs : ~Replicates(Decide27(n, hs, {}, {}))
-s\* a check "replicates" when it hands the replicator a task with at least one candidate node. (With overlapping
-\* rules the code as found keeps calling the replicator with an EMPTY candidate list: a holder remembered from
-\* an earlier rule does not lower the shortage of a later rule - a phantom shortage that copies nothing.)
-Replicates(d) == \E k \in 1..Len(d.tasks) : Len(d.tasks[k].nodes) > 0
-Quiet(hs) == \A n \in hs : LET d == Decide27(n, hs, {}, {}) IN ~Replicates(d) /\ d.del = "none"
-NoTasks(hs) == \A n \in hs : ~Replicates(Decide27(n, hs, {}, {}))
- \* a check "replicates" when it hands the replicator a task with at least one candidate node. (With overlapping
-\* rules the code as found keeps calling the replicator with an EMPTY candidate list: a holder remembered from
-\* an earlier rule does not lower the shortage of a later rule - a phantom shortage that copies nothing.)
-Replicates(d) == \E k \in 1..Len(d.tasks) : Len(d.tasks[k].nodes) > 0
-Quiet(hs) == \A n \in hs : LET d == Decide27(n, hs, {}, {}) IN ~Replicates(d) /\ d.del = "none"
-NoTasks(hs) == \A n \in hs : ~Replicates(Decide27(n, hs, {}, {}))
-:\* a check "replicates" when it hands the replicator a task with at least one candidate node. (With overlapping
-\* rules the code as found keeps calling the replicator with an EMPTY candidate list: a holder remembered from
-\* an earlier rule does not lower the shortage of a later rule - a phantom shortage that copies nothing.)
-Replicates(d) == \E k \in 1..Len(d.tasks) : Len(d.tasks[k].nodes) > 0
-Quiet(hs) == \A n \in hs : LET d == Decide27(n, hs, {}, {}) IN ~Replicates(d) /\ d.del = "none"
-NoTasks(hs) == \A n \in hs : ~Replicates(Decide27(n, hs, {}, {}))
- \* a check "replicates" when it hands the replicator a task with at least one candidate node. (With overlapping
-\* rules the code as found keeps calling the replicator with an EMPTY candidate list: a holder remembered from
-\* an earlier rule does not lower the shortage of a later rule - a phantom shortage that copies nothing.)
-Replicates(d) == \E k \in 1..Len(d.tasks) : Len(d.tasks[k].nodes) > 0
-Quiet(hs) == \A n \in hs : LET d == Decide27(n, hs, {}, {}) IN ~Replicates(d) /\ d.del = "none"
-NoTasks(hs) == \A n \in hs : ~Replicates(Decide27(n, hs, {}, {}))
-x\* a check "replicates" when it hands the replicator a task with at least one candidate node. (With overlapping
-\* rules the code as found keeps calling the replicator with an EMPTY candidate list: a holder remembered from
-\* an earlier rule does not lower the shortage of a later rule - a phantom shortage that copies nothing.)
-Replicates(d) == \E k \in 1..Len(d.tasks) : Len(d.tasks[k].nodes) > 0
-Quiet(hs) == \A n \in hs : LET d == Decide27(n, hs, {}, {}) IN ~Replicates(d) /\ d.del = "none"
-NoTasks(hs) == \A n \in hs : ~Replicates(Decide27(n, hs, {}, {}))
- \* a check "replicates" when it hands the replicator a task with at least one candidate node. (With overlapping
-\* rules the code as found keeps calling the replicator with an EMPTY candidate list: a holder remembered from
-\* an earlier rule does not lower the shortage of a later rule - a phantom shortage that copies nothing.)
-Replicates(d) == \E k \in 1..Len(d.tasks) : Len(d.tasks[k].nodes) > 0
-Quiet(hs) == \A n \in hs : LET d == Decide27(n, hs, {}, {}) IN ~Replicates(d) /\ d.del = "none"
-NoTasks(hs) == \A n \in hs : ~Replicates(Decide27(n, hs, {}, {}))
-<\* a check "replicates" when it hands the replicator a task with at least one candidate node. (With overlapping
-\* rules the code as found keeps calling the replicator with an EMPTY candidate list: a holder remembered from
-\* an earlier rule does not lower the shortage of a later rule - a phantom shortage that copies nothing.)
-Replicates(d) == \E k \in 1..Len(d.tasks) : Len(d.tasks[k].nodes) > 0
-Quiet(hs) == \A n \in hs : LET d == Decide27(n, hs, {}, {}) IN ~Replicates(d) /\ d.del = "none"
-NoTasks(hs) == \A n \in hs : ~Replicates(Decide27(n, hs, {}, {}))
-=\* a check "replicates" when it hands the replicator a task with at least one candidate node. (With overlapping
-\* rules the code as found keeps calling the replicator with an EMPTY candidate list: a holder remembered from
-\* an earlier rule does not lower the shortage of a later rule - a phantom shortage that copies nothing.)
-Replicates(d) == \E k \in 1..Len(d.tasks) : Len(d.tasks[k].nodes) > 0
-Quiet(hs) == \A n \in hs : LET d == Decide27(n, hs, {}, {}) IN ~Replicates(d) /\ d.del = "none"
-NoTasks(hs) == \A n \in hs : ~Replicates(Decide27(n, hs, {}, {}))
- \* a check "replicates" when it hands the replicator a task with at least one candidate node. (With overlapping
-\* rules the code as found keeps calling the replicator with an EMPTY candidate list: a holder remembered from
-\* an earlier rule does not lower the shortage of a later rule - a phantom shortage that copies nothing.)
-Replicates(d) == \E k \in 1..Len(d.tasks) : Len(d.tasks[k].nodes) > 0
-Quiet(hs) == \A n \in hs : LET d == Decide27(n, hs, {}, {}) IN ~Replicates(d) /\ d.del = "none"
-NoTasks(hs) == \A n \in hs : ~Replicates(Decide27(n, hs, {}, {}))
-L\* a check "replicates" when it hands the replicator a task with at least one candidate node. (With overlapping
-\* rules the code as found keeps calling the replicator with an EMPTY candidate list: a holder remembered from
-\* an earlier rule does not lower the shortage of a later rule - a phantom shortage that copies nothing.)
-Replicates(d) == \E k \in 1..Len(d.tasks) : Len(d.tasks[k].nodes) > 0
-Quiet(hs) == \A n \in hs : LET d == Decide27(n, hs, {}, {}) IN ~Replicates(d) /\ d.del = "none"
-NoTasks(hs) == \A n \in hs : ~Replicates(Decide27(n, hs, {}, {}))
-e\* a check "replicates" when it hands the replicator a task with at least one candidate node. (With overlapping
-\* rules the code as found keeps calling the replicator with an EMPTY candidate list: a holder remembered from
-\* an earlier rule does not lower the shortage of a later rule - a phantom shortage that copies nothing.)
-Replicates(d) == \E k \in 1..Len(d.tasks) : Len(d.tasks[k].nodes) > 0
-Quiet(hs) == \A n \in hs : LET d == Decide27(n, hs, {}, {}) IN ~Replicates(d) /\ d.del = "none"
-NoTasks(hs) == \A n \in hs : ~Replicates(Decide27(n, hs, {}, {}))
-n\* a check "replicates" when it hands the replicator a task with at least one candidate node. (With overlapping
-\* rules the code as found keeps calling the replicator with an EMPTY candidate list: a holder remembered from
-\* an earlier rule does not lower the shortage of a later rule - a phantom shortage that copies nothing.)
-Replicates(d) == \E k \in 1..Len(d.tasks) : Len(d.tasks[k].nodes) > 0
-Quiet(hs) == \A n \in hs : LET d == Decide27(n, hs, {}, {}) IN ~Replicates(d) /\ d.del = "none"
-NoTasks(hs) == \A n \in hs : ~Replicates(Decide27(n, hs, {}, {}))
-(\* a check "replicates" when it hands the replicator a task with at least one candidate node. (With overlapping
-\* rules the code as found keeps calling the replicator with an EMPTY candidate list: a holder remembered from
-\* an earlier rule does not lower the shortage of a later rule - a phantom shortage that copies nothing.)
-Replicates(d) == \E k \in 1..Len(d.tasks) : Len(d.tasks[k].nodes) > 0
-Quiet(hs) == \A n \in hs : LET d == Decide27(n, hs, {}, {}) IN ~Replicates(d) /\ d.del = "none"
-NoTasks(hs) == \A n \in hs : ~Replicates(Decide27(n, hs, {}, {}))
-q\* a check "replicates" when it hands the replicator a task with at least one candidate node. (With overlapping
-\* rules the code as found keeps calling the replicator with an EMPTY candidate list: a holder remembered from
-\* an earlier rule does not lower the shortage of a later rule - a phantom shortage that copies nothing.)
-Replicates(d) == \E k \in 1..Len(d.tasks) : Len(d.tasks[k].nodes) > 0
-Quiet(hs) == \A n \in hs : LET d == Decide27(n, hs, {}, {}) IN ~Replicates(d) /\ d.del = "none"
-NoTasks(hs) == \A n \in hs : ~Replicates(Decide27(n, hs, {}, {}))
-)\* a check "replicates" when it hands the replicator a task with at least one candidate node. (With overlapping
-\* rules the code as found keeps calling the replicator with an EMPTY candidate list: a holder remembered from
-\* an earlier rule does not lower the shortage of a later rule - a phantom shortage that copies nothing.)
-Replicates(d) == \E k \in 1..Len(d.tasks) : Len(d.tasks[k].nodes) > 0
-Quiet(hs) == \A n \in hs : LET d == Decide27(n, hs, {}, {}) IN ~Replicates(d) /\ d.del = "none"
-NoTasks(hs) == \A n \in hs : ~Replicates(Decide27(n, hs, {}, {}))
-}\* a check "replicates" when it hands the replicator a task with at least one candidate node. (With overlapping
-\* rules the code as found keeps calling the replicator with an EMPTY candidate list: a holder remembered from
-\* an earlier rule does not lower the shortage of a later rule - a phantom shortage that copies nothing.)
-Replicates(d) == \E k \in 1..Len(d.tasks) : Len(d.tasks[k].nodes) > 0
-Quiet(hs) == \A n \in hs : LET d == Decide27(n, hs, {}, {}) IN ~Replicates(d) /\ d.del = "none"
-NoTasks(hs) == \A n \in hs : ~Replicates(Decide27(n, hs, {}, {}))
-}\* a check "replicates" when it hands the replicator a task with at least one candidate node. (With overlapping
-\* rules the code as found keeps calling the replicator with an EMPTY candidate list: a holder remembered from
-\* an earlier rule does not lower the shortage of a later rule - a phantom shortage that copies nothing.)
-Replicates(d) == \E k \in 1..Len(d.tasks) : Len(d.tasks[k].nodes) > 0
-Quiet(hs) == \A n \in hs : LET d == Decide27(n, hs, {}, {}) IN ~Replicates(d) /\ d.del = "none"
-NoTasks(hs) == \A n \in hs : ~Replicates(Decide27(n, hs, {}, {}))
- \* a check "replicates" when it hands the replicator a task with at least one candidate node. (With overlapping
-\* rules the code as found keeps calling the replicator with an EMPTY candidate list: a holder remembered from
-\* an earlier rule does not lower the shortage of a later rule - a phantom shortage that copies nothing.)
-Replicates(d) == \E k \in 1..Len(d.tasks) : Len(d.tasks[k].nodes) > 0
-Quiet(hs) == \A n \in hs : LET d == Decide27(n, hs, {}, {}) IN ~Replicates(d) /\ d.del = "none"
-NoTasks(hs) == \A n \in hs : ~Replicates(Decide27(n, hs, {}, {}))
-:\* a check "replicates" when it hands the replicator a task with at least one candidate node. (With overlapping
-\* rules the code as found keeps calling the replicator with an EMPTY candidate list: a holder remembered from
-\* an earlier rule does not lower the shortage of a later rule - a phantom shortage that copies nothing.)
-Replicates(d) == \E k \in 1..Len(d.tasks) : Len(d.tasks[k].nodes) > 0
-Quiet(hs) == \A n \in hs : LET d == Decide27(n, hs, {}, {}) IN ~Replicates(d) /\ d.del = "none"
-NoTasks(hs) == \A n \in hs : ~Replicates(Decide27(n, hs, {}, {}))
- \* a check "replicates" when it hands the replicator a task with at least one candidate node. (With overlapping
-\* rules the code as found keeps calling the replicator with an EMPTY candidate list: a holder remembered from
-\* an earlier rule does not lower the shortage of a later rule - a phantom shortage that copies nothing.)
-Replicates(d) == \E k \in 1..Len(d.tasks) : Len(d.tasks[k].nodes) > 0
-Quiet(hs) == \A n \in hs : LET d == Decide27(n, hs, {}, {}) IN ~Replicates(d) /\ d.del = "none"
-NoTasks(hs) == \A n \in hs : ~Replicates(Decide27(n, hs, {}, {}))
-q\* a check "replicates" when it hands the replicator a task with at least one candidate node. (With overlapping
-\* rules the code as found keeps calling the replicator with an EMPTY candidate list: a holder remembered from
-\* an earlier rule does not lower the shortage of a later rule - a phantom shortage that copies nothing.)
-Replicates(d) == \E k \in 1..Len(d.tasks) : Len(d.tasks[k].nodes) > 0
-Quiet(hs) == \A n \in hs : LET d == Decide27(n, hs, {}, {}) IN ~Replicates(d) /\ d.del = "none"
-NoTasks(hs) == \A n \in hs : ~Replicates(Decide27(n, hs, {}, {}))
- \* a check "replicates" when it hands the replicator a task with at least one candidate node. (With overlapping
-\* rules the code as found keeps calling the replicator with an EMPTY candidate list: a holder remembered from
-\* an earlier rule does not lower the shortage of a later rule - a phantom shortage that copies nothing.)
-Replicates(d) == \E k \in 1..Len(d.tasks) : Len(d.tasks[k].nodes) > 0
-Quiet(hs) == \A n \in hs : LET d == Decide27(n, hs, {}, {}) IN ~Replicates(d) /\ d.del = "none"
-NoTasks(hs) == \A n \in hs : ~Replicates(Decide27(n, hs, {}, {}))
-\\* a check "replicates" when it hands the replicator a task with at least one candidate node. (With overlapping
-\* rules the code as found keeps calling the replicator with an EMPTY candidate list: a holder remembered from
-\* an earlier rule does not lower the shortage of a later rule - a phantom shortage that copies nothing.)
-Replicates(d) == \E k \in 1..Len(d.tasks) : Len(d.tasks[k].nodes) > 0
-Quiet(hs) == \A n \in hs : LET d == Decide27(n, hs, {}, {}) IN ~Replicates(d) /\ d.del = "none"
-NoTasks(hs) == \A n \in hs : ~Replicates(Decide27(n, hs, {}, {}))
-i\* a check "replicates" when it hands the replicator a task with at least one candidate node. (With overlapping
-\* rules the code as found keeps calling the replicator with an EMPTY candidate list: a holder remembered from
-\* an earlier rule does not lower the shortage of a later rule - a phantom shortage that copies nothing.)
-Replicates(d) == \E k \in 1..Len(d.tasks) : Len(d.tasks[k].nodes) > 0
-Quiet(hs) == \A n \in hs : LET d == Decide27(n, hs, {}, {}) IN ~Replicates(d) /\ d.del = "none"
-NoTasks(hs) == \A n \in hs : ~Replicates(Decide27(n, hs, {}, {}))
-n\* a check "replicates" when it hands the replicator a task with at least one candidate node. (With overlapping
-\* rules the code as found keeps calling the replicator with an EMPTY candidate list: a holder remembered from
-\* an earlier rule does not lower the shortage of a later rule - a phantom shortage that copies nothing.)
-Replicates(d) == \E k \in 1..Len(d.tasks) : Len(d.tasks[k].nodes) > 0
-Quiet(hs) == \A n \in hs : LET d == Decide27(n, hs, {}, {}) IN ~Replicates(d) /\ d.del = "none"
-NoTasks(hs) == \A n \in hs : ~Replicates(Decide27(n, hs, {}, {}))
- \* a check "replicates" when it hands the replicator a task with at least one candidate node. (With overlapping
-\* rules the code as found keeps calling the replicator with an EMPTY candidate list: a holder remembered from
-\* an earlier rule does not lower the shortage of a later rule - a phantom shortage that copies nothing.)
-Replicates(d) == \E k \in 1..Len(d.tasks) : Len(d.tasks[k].nodes) > 0
-Quiet(hs) == \A n \in hs : LET d == Decide27(n, hs, {}, {}) IN ~Replicates(d) /\ d.del = "none"
-NoTasks(hs) == \A n \in hs : ~Replicates(Decide27(n, hs, {}, {}))
-C\* a check "replicates" when it hands the replicator a task with at least one candidate node. (With overlapping
-\* rules the code as found keeps calling the replicator with an EMPTY candidate list: a holder remembered from
-\* an earlier rule does not lower the shortage of a later rule - a phantom shortage that copies nothing.)
-Replicates(d) == \E k \in 1..Len(d.tasks) : Len(d.tasks[k].nodes) > 0
-Quiet(hs) == \A n \in hs : LET d == Decide27(n, hs, {}, {}) IN ~Replicates(d) /\ d.del = "none"
-NoTasks(hs) == \A n \in hs : ~Replicates(Decide27(n, hs, {}, {}))
-L\* a check "replicates" when it hands the replicator a task with at least one candidate node. (With overlapping
-\* rules the code as found keeps calling the replicator with an EMPTY candidate list: a holder remembered from
-\* an earlier rule does not lower the shortage of a later rule - a phantom shortage that copies nothing.)
-Replicates(d) == \E k \in 1..Len(d.tasks) : Len(d.tasks[k].nodes) > 0
-Quiet(hs) == \A n \in hs : LET d == Decide27(n, hs, {}, {}) IN ~Replicates(d) /\ d.del = "none"
-NoTasks(hs) == \A n \in hs : ~Replicates(Decide27(n, hs, {}, {}))
-i\* a check "replicates" when it hands the replicator a task with at least one candidate node. (With overlapping
-\* rules the code as found keeps calling the replicator with an EMPTY candidate list: a holder remembered from
-\* an earlier rule does not lower the shortage of a later rule - a phantom shortage that copies nothing.)
-Replicates(d) == \E k \in 1..Len(d.tasks) : Len(d.tasks[k].nodes) > 0
-Quiet(hs) == \A n \in hs : LET d == Decide27(n, hs, {}, {}) IN ~Replicates(d) /\ d.del = "none"
-NoTasks(hs) == \A n \in hs : ~Replicates(Decide27(n, hs, {}, {}))
-s\* a check "replicates" when it hands the replicator a task with at least one candidate node. (With overlapping
-\* rules the code as found keeps calling the replicator with an EMPTY candidate list: a holder remembered from
-\* an earlier rule does not lower the shortage of a later rule - a phantom shortage that copies nothing.)
-Replicates(d) == \E k \in 1..Len(d.tasks) : Len(d.tasks[k].nodes) > 0
-Quiet(hs) == \A n \in hs : LET d == Decide27(n, hs, {}, {}) IN ~Replicates(d) /\ d.del = "none"
-NoTasks(hs) == \A n \in hs : ~Replicates(Decide27(n, hs, {}, {}))
-t\* a check "replicates" when it hands the replicator a task with at least one candidate node. (With overlapping
-\* rules the code as found keeps calling the replicator with an EMPTY candidate list: a holder remembered from
-\* an earlier rule does not lower the shortage of a later rule - a phantom shortage that copies nothing.)
-Replicates(d) == \E k \in 1..Len(d.tasks) : Len(d.tasks[k].nodes) > 0
-Quiet(hs) == \A n \in hs : LET d == Decide27(n, hs, {}, {}) IN ~Replicates(d) /\ d.del = "none"
-NoTasks(hs) == \A n \in hs : ~Replicates(Decide27(n, hs, {}, {}))
-s\* a check "replicates" when it hands the replicator a task with at least one candidate node. (With overlapping
-\* rules the code as found keeps calling the replicator with an EMPTY candidate list: a holder remembered from
-\* an earlier rule does not lower the shortage of a later rule - a phantom shortage that copies nothing.)
-Replicates(d) == \E k \in 1..Len(d.tasks) : Len(d.tasks[k].nodes) > 0
-Quiet(hs) == \A n \in hs : LET d == Decide27(n, hs, {}, {}) IN ~Replicates(d) /\ d.del = "none"
-NoTasks(hs) == \A n \in hs : ~Replicates(Decide27(n, hs, {}, {}))
-}\* a check "replicates" when it hands the replicator a task with at least one candidate node. (With overlapping
-\* rules the code as found keeps calling the replicator with an EMPTY candidate list: a holder remembered from
-\* an earlier rule does not lower the shortage of a later rule - a phantom shortage that copies nothing.)
-Replicates(d) == \E k \in 1..Len(d.tasks) : Len(d.tasks[k].nodes) > 0
-Quiet(hs) == \A n \in hs : LET d == Decide27(n, hs, {}, {}) IN ~Replicates(d) /\ d.del = "none"
-NoTasks(hs) == \A n \in hs : ~Replicates(Decide27(n, hs, {}, {}))
-
-\* a check "replicates" when it hands the replicator a task with at least one candidate node. (With overlapping
-\* rules the code as found keeps calling the replicator with an EMPTY candidate list: a holder remembered from
-\* an earlier rule does not lower the shortage of a later rule - a phantom shortage that copies nothing.)
-Replicates(d) == \E k \in 1..Len(d.tasks) : Len(d.tasks[k].nodes) > 0
-Quiet(hs) == \A n \in hs : LET d == Decide27(n, hs, {}, {}) IN ~Replicates(d) /\ d.del = "none"
-NoTasks(hs) == \A n \in hs : ~Replicates(Decide27(n, hs, {}, {}))
-N\* a check "replicates" when it hands the replicator a task with at least one candidate node. (With overlapping
-\* rules the code as found keeps calling the replicator with an EMPTY candidate list: a holder remembered from
-\* an earlier rule does not lower the shortage of a later rule - a phantom shortage that copies nothing.)
-Replicates(d) == \E k \in 1..Len(d.tasks) : Len(d.tasks[k].nodes) > 0
-Quiet(hs) == \A n \in hs : LET d == Decide27(n, hs, {}, {}) IN ~Replicates(d) /\ d.del = "none"
-NoTasks(hs) == \A n \in hs : ~Replicates(Decide27(n, hs, {}, {}))
-o\* a check "replicates" when it hands the replicator a task with at least one candidate node. (With overlapping
-\* rules the code as found keeps calling the replicator with an EMPTY candidate list: a holder remembered from
-\* an earlier rule does not lower the shortage of a later rule - a phantom shortage that copies nothing.)
-Replicates(d) == \E k \in 1..Len(d.tasks) : Len(d.tasks[k].nodes) > 0
-Quiet(hs) == \A n \in hs : LET d == Decide27(n, hs, {}, {}) IN ~Replicates(d) /\ d.del = "none"
-NoTasks(hs) == \A n \in hs : ~Replicates(Decide27(n, hs, {}, {}))
-L\* a check "replicates" when it hands the replicator a task with at least one candidate node. (With overlapping
-\* rules the code as found keeps calling the replicator with an EMPTY candidate list: a holder remembered from
-\* an earlier rule does not lower the shortage of a later rule - a phantom shortage that copies nothing.)
-Replicates(d) == \E k \in 1..Len(d.tasks) : Len(d.tasks[k].nodes) > 0
-Quiet(hs) == \A n \in hs : LET d == Decide27(n, hs, {}, {}) IN ~Replicates(d) /\ d.del = "none"
-NoTasks(hs) == \A n \in hs : ~Replicates(Decide27(n, hs, {}, {}))
-a\* a check "replicates" when it hands the replicator a task with at least one candidate node. (With overlapping
-\* rules the code as found keeps calling the replicator with an EMPTY candidate list: a holder remembered from
-\* an earlier rule does not lower the shortage of a later rule - a phantom shortage that copies nothing.)
-Replicates(d) == \E k \in 1..Len(d.tasks) : Len(d.tasks[k].nodes) > 0
-Quiet(hs) == \A n \in hs : LET d == Decide27(n, hs, {}, {}) IN ~Replicates(d) /\ d.del = "none"
-NoTasks(hs) == \A n \in hs : ~Replicates(Decide27(n, hs, {}, {}))
-s\* a check "replicates" when it hands the replicator a task with at least one candidate node. (With overlapping
-\* rules the code as found keeps calling the replicator with an EMPTY candidate list: a holder remembered from
-\* an earlier rule does not lower the shortage of a later rule - a phantom shortage that copies nothing.)
-Replicates(d) == \E k \in 1..Len(d.tasks) : Len(d.tasks[k].nodes) > 0
-Quiet(hs) == \A n \in hs : LET d == Decide27(n, hs, {}, {}) IN ~Replicates(d) /\ d.del = "none"
-NoTasks(hs) == \A n \in hs : ~Replicates(Decide27(n, hs, {}, {}))
-t\* a check "replicates" when it hands the replicator a task with at least one candidate node. (With overlapping
-\* rules the code as found keeps calling the replicator with an EMPTY candidate list: a holder remembered from
-\* an earlier rule does not lower the shortage of a later rule - a phantom shortage that copies nothing.)
-Replicates(d) == \E k \in 1..Len(d.tasks) : Len(d.tasks[k].nodes) > 0
-Quiet(hs) == \A n \in hs : LET d == Decide27(n, hs, {}, {}) IN ~Replicates(d) /\ d.del = "none"
-NoTasks(hs) == \A n \in hs : ~Replicates(Decide27(n, hs, {}, {}))
- \* a check "replicates" when it hands the replicator a task with at least one candidate node. (With overlapping
-\* rules the code as found keeps calling the replicator with an EMPTY candidate list: a holder remembered from
-\* an earlier rule does not lower the shortage of a later rule - a phantom shortage that copies nothing.)
-Replicates(d) == \E k \in 1..Len(d.tasks) : Len(d.tasks[k].nodes) > 0
-Quiet(hs) == \A n \in hs : LET d == Decide27(n, hs, {}, {}) IN ~Replicates(d) /\ d.del = "none"
-NoTasks(hs) == \A n \in hs : ~Replicates(Decide27(n, hs, {}, {}))
-=\* a check "replicates" when it hands the replicator a task with at least one candidate node. (With overlapping
-\* rules the code as found keeps calling the replicator with an EMPTY candidate list: a holder remembered from
-\* an earlier rule does not lower the shortage of a later rule - a phantom shortage that copies nothing.)
-Replicates(d) == \E k \in 1..Len(d.tasks) : Len(d.tasks[k].nodes) > 0
-Quiet(hs) == \A n \in hs : LET d == Decide27(n, hs, {}, {}) IN ~Replicates(d) /\ d.del = "none"
-NoTasks(hs) == \A n \in hs : ~Replicates(Decide27(n, hs, {}, {}))
-=\* a check "replicates" when it hands the replicator a task with at least one candidate node. (With overlapping
-\* rules the code as found keeps calling the replicator with an EMPTY candidate list: a holder remembered from
-\* an earlier rule does not lower the shortage of a later rule - a phantom shortage that copies nothing.)
-Replicates(d) == \E k \in 1..Len(d.tasks) : Len(d.tasks[k].nodes) > 0
-Quiet(hs) == \A n \in hs : LET d == Decide27(n, hs, {}, {}) IN ~Replicates(d) /\ d.del = "none"
-NoTasks(hs) == \A n \in hs : ~Replicates(Decide27(n, hs, {}, {}))
- \* a check "replicates" when it hands the replicator a task with at least one candidate node. (With overlapping
-\* rules the code as found keeps calling the replicator with an EMPTY candidate list: a holder remembered from
-\* an earlier rule does not lower the shortage of a later rule - a phantom shortage that copies nothing.)
-Replicates(d) == \E k \in 1..Len(d.tasks) : Len(d.tasks[k].nodes) > 0
-Quiet(hs) == \A n \in hs : LET d == Decide27(n, hs, {}, {}) IN ~Replicates(d) /\ d.del = "none"
-NoTasks(hs) == \A n \in hs : ~Replicates(Decide27(n, hs, {}, {}))
-[\* a check "replicates" when it hands the replicator a task with at least one candidate node. (With overlapping
-\* rules the code as found keeps calling the replicator with an EMPTY candidate list: a holder remembered from
-\* an earlier rule does not lower the shortage of a later rule - a phantom shortage that copies nothing.)
-Replicates(d) == \E k \in 1..Len(d.tasks) : Len(d.tasks[k].nodes) > 0
-Quiet(hs) == \A n \in hs : LET d == Decide27(n, hs, {}, {}) IN ~Replicates(d) /\ d.del = "none"
-NoTasks(hs) == \A n \in hs : ~Replicates(Decide27(n, hs, {}, {}))
-n\* a check "replicates" when it hands the replicator a task with at least one candidate node. (With overlapping
-\* rules the code as found keeps calling the replicator with an EMPTY candidate list: a holder remembered from
-\* an earlier rule does not lower the shortage of a later rule - a phantom shortage that copies nothing.)
-Replicates(d) == \E k \in 1..Len(d.tasks) : Len(d.tasks[k].nodes) > 0
-Quiet(hs) == \A n \in hs : LET d == Decide27(n, hs, {}, {}) IN ~Replicates(d) /\ d.del = "none"
-NoTasks(hs) == \A n \in hs : ~Replicates(Decide27(n, hs, {}, {}))
-o\* a check "replicates" when it hands the replicator a task with at least one candidate node. (With overlapping
-\* rules the code as found keeps calling the replicator with an EMPTY candidate list: a holder remembered from
-\* an earlier rule does not lower the shortage of a later rule - a phantom shortage that copies nothing.)
-Replicates(d) == \E k \in 1..Len(d.tasks) : Len(d.tasks[k].nodes) > 0
-Quiet(hs) == \A n \in hs : LET d == Decide27(n, hs, {}, {}) IN ~Replicates(d) /\ d.del = "none"
-NoTasks(hs) == \A n \in hs : ~Replicates(Decide27(n, hs, {}, {}))
-d\* a check "replicates" when it hands the replicator a task with at least one candidate node. (With overlapping
-\* rules the code as found keeps calling the replicator with an EMPTY candidate list: a holder remembered from
-\* an earlier rule does not lower the shortage of a later rule - a phantom shortage that copies nothing.)
-Replicates(d) == \E k \in 1..Len(d.tasks) : Len(d.tasks[k].nodes) > 0
-Quiet(hs) == \A n \in hs : LET d == Decide27(n, hs, {}, {}) IN ~Replicates(d) /\ d.del = "none"
-NoTasks(hs) == \A n \in hs : ~Replicates(Decide27(n, hs, {}, {}))
-e\* a check "replicates" when it hands the replicator a task with at least one candidate node. (With overlapping
-\* rules the code as found keeps calling the replicator with an EMPTY candidate list: a holder remembered from
-\* an earlier rule does not lower the shortage of a later rule - a phantom shortage that copies nothing.)
-Replicates(d) == \E k \in 1..Len(d.tasks) : Len(d.tasks[k].nodes) > 0
-Quiet(hs) == \A n \in hs : LET d == Decide27(n, hs, {}, {}) IN ~Replicates(d) /\ d.del = "none"
-NoTasks(hs) == \A n \in hs : ~Replicates(Decide27(n, hs, {}, {}))
- \* a check "replicates" when it hands the replicator a task with at least one candidate node. (With overlapping
-\* rules the code as found keeps calling the replicator with an EMPTY candidate list: a holder remembered from
-\* an earlier rule does not lower the shortage of a later rule - a phantom shortage that copies nothing.)
-Replicates(d) == \E k \in 1..Len(d.tasks) : Len(d.tasks[k].nodes) > 0
-Quiet(hs) == \A n \in hs : LET d == Decide27(n, hs, {}, {}) IN ~Replicates(d) /\ d.del = "none"
-NoTasks(hs) == \A n \in hs : ~Replicates(Decide27(n, hs, {}, {}))
-|\* a check "replicates" when it hands the replicator a task with at least one candidate node. (With overlapping
-\* rules the code as found keeps calling the replicator with an EMPTY candidate list: a holder remembered from
-\* an earlier rule does not lower the shortage of a later rule - a phantom shortage that copies nothing.)
-Replicates(d) == \E k \in 1..Len(d.tasks) : Len(d.tasks[k].nodes) > 0
-Quiet(hs) == \A n \in hs : LET d == Decide27(n, hs, {}, {}) IN ~Replicates(d) /\ d.del = "none"
-NoTasks(hs) == \A n \in hs : ~Replicates(Decide27(n, hs, {}, {}))
--\* a check "replicates" when it hands the replicator a task with at least one candidate node. (With overlapping
-\* rules the code as found keeps calling the replicator with an EMPTY candidate list: a holder remembered from
-\* an earlier rule does not lower the shortage of a later rule - a phantom shortage that copies nothing.)
-Replicates(d) == \E k \in 1..Len(d.tasks) : Len(d.tasks[k].nodes) > 0
-Quiet(hs) == \A n \in hs : LET d == Decide27(n, hs, {}, {}) IN ~Replicates(d) /\ d.del = "none"
-NoTasks(hs) == \A n \in hs : ~Replicates(Decide27(n, hs, {}, {}))
->\* a check "replicates" when it hands the replicator a task with at least one candidate node. (With overlapping
-\* rules the code as found keeps calling the replicator with an EMPTY candidate list: a holder remembered from
-\* an earlier rule does not lower the shortage of a later rule - a phantom shortage that copies nothing.)
-Replicates(d) == \E k \in 1..Len(d.tasks) : Len(d.tasks[k].nodes) > 0
-Quiet(hs) == \A n \in hs : LET d == Decide27(n, hs, {}, {}) IN ~Replicates(d) /\ d.del = "none"
-NoTasks(hs) == \A n \in hs : ~Replicates(Decide27(n, hs, {}, {}))
- \* a check "replicates" when it hands the replicator a task with at least one candidate node. (With overlapping
-\* rules the code as found keeps calling the replicator with an EMPTY candidate list: a holder remembered from
-\* an earlier rule does not lower the shortage of a later rule - a phantom shortage that copies nothing.)
-Replicates(d) == \E k \in 1..Len(d.tasks) : Len(d.tasks[k].nodes) > 0
-Quiet(hs) == \A n \in hs : LET d == Decide27(n, hs, {}, {}) IN ~Replicates(d) /\ d.del = "none"
-NoTasks(hs) == \A n \in hs : ~Replicates(Decide27(n, hs, {}, {}))
-0\* a check "replicates" when it hands the replicator a task with at least one candidate node. (With overlapping
-\* rules the code as found keeps calling the replicator with an EMPTY candidate list: a holder remembered from
-\* an earlier rule does not lower the shortage of a later rule - a phantom shortage that copies nothing.)
-Replicates(d) == \E k \in 1..Len(d.tasks) : Len(d.tasks[k].nodes) > 0
-Quiet(hs) == \A n \in hs : LET d == Decide27(n, hs, {}, {}) IN ~Replicates(d) /\ d.del = "none"
-NoTasks(hs) == \A n \in hs : ~Replicates(Decide27(n, hs, {}, {}))
-,\* a check "replicates" when it hands the replicator a task with at least one candidate node. (With overlapping
-\* rules the code as found keeps calling the replicator with an EMPTY candidate list: a holder remembered from
-\* an earlier rule does not lower the shortage of a later rule - a phantom shortage that copies nothing.)
-Replicates(d) == \E k \in 1..Len(d.tasks) : Len(d.tasks[k].nodes) > 0
-Quiet(hs) == \A n \in hs : LET d == Decide27(n, hs, {}, {}) IN ~Replicates(d) /\ d.del = "none"
-NoTasks(hs) == \A n \in hs : ~Replicates(Decide27(n, hs, {}, {}))
- \* a check "replicates" when it hands the replicator a task with at least one candidate node. (With overlapping
-\* rules the code as found keeps calling the replicator with an EMPTY candidate list: a holder remembered from
-\* an earlier rule does not lower the shortage of a later rule - a phantom shortage that copies nothing.)
-Replicates(d) == \E k \in 1..Len(d.tasks) : Len(d.tasks[k].nodes) > 0
-Quiet(hs) == \A n \in hs : LET d == Decide27(n, hs, {}, {}) IN ~Replicates(d) /\ d.del = "none"
-NoTasks(hs) == \A n \in hs : ~Replicates(Decide27(n, hs, {}, {}))
-d\* a check "replicates" when it hands the replicator a task with at least one candidate node. (With overlapping
-\* rules the code as found keeps calling the replicator with an EMPTY candidate list: a holder remembered from
-\* an earlier rule does not lower the shortage of a later rule - a phantom shortage that copies nothing.)
-Replicates(d) == \E k \in 1..Len(d.tasks) : Len(d.tasks[k].nodes) > 0
-Quiet(hs) == \A n \in hs : LET d == Decide27(n, hs, {}, {}) IN ~Replicates(d) /\ d.del = "none"
-NoTasks(hs) == \A n \in hs : ~Replicates(Decide27(n, hs, {}, {}))
-o\* a check "replicates" when it hands the replicator a task with at least one candidate node. (With overlapping
-\* rules the code as found keeps calling the replicator with an EMPTY candidate list: a holder remembered from
-\* an earlier rule does not lower the shortage of a later rule - a phantom shortage that copies nothing.)
-Replicates(d) == \E k \in 1..Len(d.tasks) : Len(d.tasks[k].nodes) > 0
-Quiet(hs) == \A n \in hs : LET d == Decide27(n, hs, {}, {}) IN ~Replicates(d) /\ d.del = "none"
-NoTasks(hs) == \A n \in hs : ~Replicates(Decide27(n, hs, {}, {}))
-w\* a check "replicates" when it hands the replicator a task with at least one candidate node. (With overlapping
-\* rules the code as found keeps calling the replicator with an EMPTY candidate list: a holder remembered from
-\* an earlier rule does not lower the shortage of a later rule - a phantom shortage that copies nothing.)
-Replicates(d) == \E k \in 1..Len(d.tasks) : Len(d.tasks[k].nodes) > 0
-Quiet(hs) == \A n \in hs : LET d == Decide27(n, hs, {}, {}) IN ~Replicates(d) /\ d.del = "none"
-NoTasks(hs) == \A n \in hs : ~Replicates(Decide27(n, hs, {}, {}))
-n\* a check "replicates" when it hands the replicator a task with at least one candidate node. (With overlapping
-\* rules the code as found keeps calling the replicator with an EMPTY candidate list: a holder remembered from
-\* an earlier rule does not lower the shortage of a later rule - a phantom shortage that copies nothing.)
-Replicates(d) == \E k \in 1..Len(d.tasks) : Len(d.tasks[k].nodes) > 0
-Quiet(hs) == \A n \in hs : LET d == Decide27(n, hs, {}, {}) IN ~Replicates(d) /\ d.del = "none"
-NoTasks(hs) == \A n \in hs : ~Replicates(Decide27(n, hs, {}, {}))
- \* a check "replicates" when it hands the replicator a task with at least one candidate node. (With overlapping
-\* rules the code as found keeps calling the replicator with an EMPTY candidate list: a holder remembered from
-\* an earlier rule does not lower the shortage of a later rule - a phantom shortage that copies nothing.)
-Replicates(d) == \E k \in 1..Len(d.tasks) : Len(d.tasks[k].nodes) > 0
-Quiet(hs) == \A n \in hs : LET d == Decide27(n, hs, {}, {}) IN ~Replicates(d) /\ d.del = "none"
-NoTasks(hs) == \A n \in hs : ~Replicates(Decide27(n, hs, {}, {}))
-|\* a check "replicates" when it hands the replicator a task with at least one candidate node. (With overlapping
-\* rules the code as found keeps calling the replicator with an EMPTY candidate list: a holder remembered from
-\* an earlier rule does not lower the shortage of a later rule - a phantom shortage that copies nothing.)
-Replicates(d) == \E k \in 1..Len(d.tasks) : Len(d.tasks[k].nodes) > 0
-Quiet(hs) == \A n \in hs : LET d == Decide27(n, hs, {}, {}) IN ~Replicates(d) /\ d.del = "none"
-NoTasks(hs) == \A n \in hs : ~Replicates(Decide27(n, hs, {}, {}))
--\* a check "replicates" when it hands the replicator a task with at least one candidate node. (With overlapping
-\* rules the code as found keeps calling the replicator with an EMPTY candidate list: a holder remembered from
-\* an earlier rule does not lower the shortage of a later rule - a phantom shortage that copies nothing.)
-Replicates(d) == \E k \in 1..Len(d.tasks) : Len(d.tasks[k].nodes) > 0
-Quiet(hs) == \A n \in hs : LET d == Decide27(n, hs, {}, {}) IN ~Replicates(d) /\ d.del = "none"
-NoTasks(hs) == \A n \in hs : ~Replicates(Decide27(n, hs, {}, {}))
->\* a check "replicates" when it hands the replicator a task with at least one candidate node. (With overlapping
-\* rules the code as found keeps calling the replicator with an EMPTY candidate list: a holder remembered from
-\* an earlier rule does not lower the shortage of a later rule - a phantom shortage that copies nothing.)
-Replicates(d) == \E k \in 1..Len(d.tasks) : Len(d.tasks[k].nodes) > 0
-Quiet(hs) == \A n \in hs : LET d == Decide27(n, hs, {}, {}) IN ~Replicates(d) /\ d.del = "none"
-NoTasks(hs) == \A n \in hs : ~Replicates(Decide27(n, hs, {}, {}))
- \* a check "replicates" when it hands the replicator a task with at least one candidate node. (With overlapping
-\* rules the code as found keeps calling the replicator with an EMPTY candidate list: a holder remembered from
-\* an earlier rule does not lower the shortage of a later rule - a phantom shortage that copies nothing.)
-Replicates(d) == \E k \in 1..Len(d.tasks) : Len(d.tasks[k].nodes) > 0
-Quiet(hs) == \A n \in hs : LET d == Decide27(n, hs, {}, {}) IN ~Replicates(d) /\ d.del = "none"
-NoTasks(hs) == \A n \in hs : ~Replicates(Decide27(n, hs, {}, {}))
-{\* a check "replicates" when it hands the replicator a task with at least one candidate node. (With overlapping
-\* rules the code as found keeps calling the replicator with an EMPTY candidate list: a holder remembered from
-\* an earlier rule does not lower the shortage of a later rule - a phantom shortage that copies nothing.)
-Replicates(d) == \E k \in 1..Len(d.tasks) : Len(d.tasks[k].nodes) > 0
-Quiet(hs) == \A n \in hs : LET d == Decide27(n, hs, {}, {}) IN ~Replicates(d) /\ d.del = "none"
-NoTasks(hs) == \A n \in hs : ~Replicates(Decide27(n, hs, {}, {}))
-}\* a check "replicates" when it hands the replicator a task with at least one candidate node. (With overlapping
-\* rules the code as found keeps calling the replicator with an EMPTY candidate list: a holder remembered from
-\* an earlier rule does not lower the shortage of a later rule - a phantom shortage that copies nothing.)
-Replicates(d) == \E k \in 1..Len(d.tasks) : Len(d.tasks[k].nodes) > 0
-Quiet(hs) == \A n \in hs : LET d == Decide27(n, hs, {}, {}) IN ~Replicates(d) /\ d.del = "none"
-NoTasks(hs) == \A n \in hs : ~Replicates(Decide27(n, hs, {}, {}))
-,\* a check "replicates" when it hands the replicator a task with at least one candidate node. (With overlapping
-\* rules the code as found keeps calling the replicator with an EMPTY candidate list: a holder remembered from
-\* an earlier rule does not lower the shortage of a later rule - a phantom shortage that copies nothing.)
-Replicates(d) == \E k \in 1..Len(d.tasks) : Len(d.tasks[k].nodes) > 0
-Quiet(hs) == \A n \in hs : LET d == Decide27(n, hs, {}, {}) IN ~Replicates(d) /\ d.del = "none"
-NoTasks(hs) == \A n \in hs : ~Replicates(Decide27(n, hs, {}, {}))
- \* a check "replicates" when it hands the replicator a task with at least one candidate node. (With overlapping
-\* rules the code as found keeps calling the replicator with an EMPTY candidate list: a holder remembered from
-\* an earlier rule does not lower the shortage of a later rule - a phantom shortage that copies nothing.)
-Replicates(d) == \E k \in 1..Len(d.tasks) : Len(d.tasks[k].nodes) > 0
-Quiet(hs) == \A n \in hs : LET d == Decide27(n, hs, {}, {}) IN ~Replicates(d) /\ d.del = "none"
-NoTasks(hs) == \A n \in hs : ~Replicates(Decide27(n, hs, {}, {}))
-d\* a check "replicates" when it hands the replicator a task with at least one candidate node. (With overlapping
-\* rules the code as found keeps calling the replicator with an EMPTY candidate list: a holder remembered from
-\* an earlier rule does not lower the shortage of a later rule - a phantom shortage that copies nothing.)
-Replicates(d) == \E k \in 1..Len(d.tasks) : Len(d.tasks[k].nodes) > 0
-Quiet(hs) == \A n \in hs : LET d == Decide27(n, hs, {}, {}) IN ~Replicates(d) /\ d.del = "none"
-NoTasks(hs) == \A n \in hs : ~Replicates(Decide27(n, hs, {}, {}))
-e\* a check "replicates" when it hands the replicator a task with at least one candidate node. (With overlapping
-\* rules the code as found keeps calling the replicator with an EMPTY candidate list: a holder remembered from
-\* an earlier rule does not lower the shortage of a later rule - a phantom shortage that copies nothing.)
-Replicates(d) == \E k \in 1..Len(d.tasks) : Len(d.tasks[k].nodes) > 0
-Quiet(hs) == \A n \in hs : LET d == Decide27(n, hs, {}, {}) IN ~Replicates(d) /\ d.del = "none"
-NoTasks(hs) == \A n \in hs : ~Replicates(Decide27(n, hs, {}, {}))
-l\* a check "replicates" when it hands the replicator a task with at least one candidate node. (With overlapping
-\* rules the code as found keeps calling the replicator with an EMPTY candidate list: a holder remembered from
-\* an earlier rule does not lower the shortage of a later rule - a phantom shortage that copies nothing.)
-Replicates(d) == \E k \in 1..Len(d.tasks) : Len(d.tasks[k].nodes) > 0
-Quiet(hs) == \A n \in hs : LET d == Decide27(n, hs, {}, {}) IN ~Replicates(d) /\ d.del = "none"
-NoTasks(hs) == \A n \in hs : ~Replicates(Decide27(n, hs, {}, {}))
- \* a check "replicates" when it hands the replicator a task with at least one candidate node. (With overlapping
-\* rules the code as found keeps calling the replicator with an EMPTY candidate list: a holder remembered from
-\* an earlier rule does not lower the shortage of a later rule - a phantom shortage that copies nothing.)
-Replicates(d) == \E k \in 1..Len(d.tasks) : Len(d.tasks[k].nodes) > 0
-Quiet(hs) == \A n \in hs : LET d == Decide27(n, hs, {}, {}) IN ~Replicates(d) /\ d.del = "none"
-NoTasks(hs) == \A n \in hs : ~Replicates(Decide27(n, hs, {}, {}))
-|\* a check "replicates" when it hands the replicator a task with at least one candidate node. (With overlapping
-\* rules the code as found keeps calling the replicator with an EMPTY candidate list: a holder remembered from
-\* an earlier rule does not lower the shortage of a later rule - a phantom shortage that copies nothing.)
-Replicates(d) == \E k \in 1..Len(d.tasks) : Len(d.tasks[k].nodes) > 0
-Quiet(hs) == \A n \in hs : LET d == Decide27(n, hs, {}, {}) IN ~Replicates(d) /\ d.del = "none"
-NoTasks(hs) == \A n \in hs : ~Replicates(Decide27(n, hs, {}, {}))
--\* a check "replicates" when it hands the replicator a task with at least one candidate node. (With overlapping
-\* rules the code as found keeps calling the replicator with an EMPTY candidate list: a holder remembered from
-\* an earlier rule does not lower the shortage of a later rule - a phantom shortage that copies nothing.)
-Replicates(d) == \E k \in 1..Len(d.tasks) : Len(d.tasks[k].nodes) > 0
-Quiet(hs) == \A n \in hs : LET d == Decide27(n, hs, {}, {}) IN ~Replicates(d) /\ d.del = "none"
-NoTasks(hs) == \A n \in hs : ~Replicates(Decide27(n, hs, {}, {}))
->\* a check "replicates" when it hands the replicator a task with at least one candidate node. (With overlapping
-\* rules the code as found keeps calling the replicator with an EMPTY candidate list: a holder remembered from
-\* an earlier rule does not lower the shortage of a later rule - a phantom shortage that copies nothing.)
-Replicates(d) == \E k \in 1..Len(d.tasks) : Len(d.tasks[k].nodes) > 0
-Quiet(hs) == \A n \in hs : LET d == Decide27(n, hs, {}, {}) IN ~Replicates(d) /\ d.del = "none"
-NoTasks(hs) == \A n \in hs : ~Replicates(Decide27(n, hs, {}, {}))
- \* a check "replicates" when it hands the replicator a task with at least one candidate node. (With overlapping
-\* rules the code as found keeps calling the replicator with an EMPTY candidate list: a holder remembered from
-\* an earlier rule does not lower the shortage of a later rule - a phantom shortage that copies nothing.)
-Replicates(d) == \E k \in 1..Len(d.tasks) : Len(d.tasks[k].nodes) > 0
-Quiet(hs) == \A n \in hs : LET d == Decide27(n, hs, {}, {}) IN ~Replicates(d) /\ d.del = "none"
-NoTasks(hs) == \A n \in hs : ~Replicates(Decide27(n, hs, {}, {}))
-"\* a check "replicates" when it hands the replicator a task with at least one candidate node. (With overlapping
-\* rules the code as found keeps calling the replicator with an EMPTY candidate list: a holder remembered from
-\* an earlier rule does not lower the shortage of a later rule - a phantom shortage that copies nothing.)
-Replicates(d) == \E k \in 1..Len(d.tasks) : Len(d.tasks[k].nodes) > 0
-Quiet(hs) == \A n \in hs : LET d == Decide27(n, hs, {}, {}) IN ~Replicates(d) /\ d.del = "none"
-NoTasks(hs) == \A n \in hs : ~Replicates(Decide27(n, hs, {}, {}))
-n\* a check "replicates" when it hands the replicator a task with at least one candidate node. (With overlapping
-\* rules the code as found keeps calling the replicator with an EMPTY candidate list: a holder remembered from
-\* an earlier rule does not lower the shortage of a later rule - a phantom shortage that copies nothing.)
-Replicates(d) == \E k \in 1..Len(d.tasks) : Len(d.tasks[k].nodes) > 0
-Quiet(hs) == \A n \in hs : LET d == Decide27(n, hs, {}, {}) IN ~Replicates(d) /\ d.del = "none"
-NoTasks(hs) == \A n \in hs : ~Replicates(Decide27(n, hs, {}, {}))
-o\* a check "replicates" when it hands the replicator a task with at least one candidate node. (With overlapping
-\* rules the code as found keeps calling the replicator with an EMPTY candidate list: a holder remembered from
-\* an earlier rule does not lower the shortage of a later rule - a phantom shortage that copies nothing.)
-Replicates(d) == \E k \in 1..Len(d.tasks) : Len(d.tasks[k].nodes) > 0
-Quiet(hs) == \A n \in hs : LET d == Decide27(n, hs, {}, {}) IN ~Replicates(d) /\ d.del = "none"
-NoTasks(hs) == \A n \in hs : ~Replicates(Decide27(n, hs, {}, {}))
-n\* a check "replicates" when it hands the replicator a task with at least one candidate node. (With overlapping
-\* rules the code as found keeps calling the replicator with an EMPTY candidate list: a holder remembered from
-\* an earlier rule does not lower the shortage of a later rule - a phantom shortage that copies nothing.)
-Replicates(d) == \E k \in 1..Len(d.tasks) : Len(d.tasks[k].nodes) > 0
-Quiet(hs) == \A n \in hs : LET d == Decide27(n, hs, {}, {}) IN ~Replicates(d) /\ d.del = "none"
-NoTasks(hs) == \A n \in hs : ~Replicates(Decide27(n, hs, {}, {}))
-e\* a check "replicates" when it hands the replicator a task with at least one candidate node. (With overlapping
-\* rules the code as found keeps calling the replicator with an EMPTY candidate list: a holder remembered from
-\* an earlier rule does not lower the shortage of a later rule - a phantom shortage that copies nothing.)
-Replicates(d) == \E k \in 1..Len(d.tasks) : Len(d.tasks[k].nodes) > 0
-Quiet(hs) == \A n \in hs : LET d == Decide27(n, hs, {}, {}) IN ~Replicates(d) /\ d.del = "none"
-NoTasks(hs) == \A n \in hs : ~Replicates(Decide27(n, hs, {}, {}))
-"\* a check "replicates" when it hands the replicator a task with at least one candidate node. (With overlapping
-\* rules the code as found keeps calling the replicator with an EMPTY candidate list: a holder remembered from
-\* an earlier rule does not lower the shortage of a later rule - a phantom shortage that copies nothing.)
-Replicates(d) == \E k \in 1..Len(d.tasks) : Len(d.tasks[k].nodes) > 0
-Quiet(hs) == \A n \in hs : LET d == Decide27(n, hs, {}, {}) IN ~Replicates(d) /\ d.del = "none"
-NoTasks(hs) == \A n \in hs : ~Replicates(Decide27(n, hs, {}, {}))
-,\* a check "replicates" when it hands the replicator a task with at least one candidate node. (With overlapping
-\* rules the code as found keeps calling the replicator with an EMPTY candidate list: a holder remembered from
-\* an earlier rule does not lower the shortage of a later rule - a phantom shortage that copies nothing.)
-Replicates(d) == \E k \in 1..Len(d.tasks) : Len(d.tasks[k].nodes) > 0
-Quiet(hs) == \A n \in hs : LET d == Decide27(n, hs, {}, {}) IN ~Replicates(d) /\ d.del = "none"
-NoTasks(hs) == \A n \in hs : ~Replicates(Decide27(n, hs, {}, {}))
- \* a check "replicates" when it hands the replicator a task with at least one candidate node. (With overlapping
-\* rules the code as found keeps calling the replicator with an EMPTY candidate list: a holder remembered from
-\* an earlier rule does not lower the shortage of a later rule - a phantom shortage that copies nothing.)
-Replicates(d) == \E k \in 1..Len(d.tasks) : Len(d.tasks[k].nodes) > 0
-Quiet(hs) == \A n \in hs : LET d == Decide27(n, hs, {}, {}) IN ~Replicates(d) /\ d.del = "none"
-NoTasks(hs) == \A n \in hs : ~Replicates(Decide27(n, hs, {}, {}))
-t\* a check "replicates" when it hands the replicator a task with at least one candidate node. (With overlapping
-\* rules the code as found keeps calling the replicator with an EMPTY candidate list: a holder remembered from
-\* an earlier rule does not lower the shortage of a later rule - a phantom shortage that copies nothing.)
-Replicates(d) == \E k \in 1..Len(d.tasks) : Len(d.tasks[k].nodes) > 0
-Quiet(hs) == \A n \in hs : LET d == Decide27(n, hs, {}, {}) IN ~Replicates(d) /\ d.del = "none"
-NoTasks(hs) == \A n \in hs : ~Replicates(Decide27(n, hs, {}, {}))
-a\* a check "replicates" when it hands the replicator a task with at least one candidate node. (With overlapping
-\* rules the code as found keeps calling the replicator with an EMPTY candidate list: a holder remembered from
-\* an earlier rule does not lower the shortage of a later rule - a phantom shortage that copies nothing.)
-Replicates(d) == \E k \in 1..Len(d.tasks) : Len(d.tasks[k].nodes) > 0
-Quiet(hs) == \A n \in hs : LET d == Decide27(n, hs, {}, {}) IN ~Replicates(d) /\ d.del = "none"
-NoTasks(hs) == \A n \in hs : ~Replicates(Decide27(n, hs, {}, {}))
-s\* a check "replicates" when it hands the replicator a task with at least one candidate node. (With overlapping
-\* rules the code as found keeps calling the replicator with an EMPTY candidate list: a holder remembered from
-\* an earlier rule does not lower the shortage of a later rule - a phantom shortage that copies nothing.)
-Replicates(d) == \E k \in 1..Len(d.tasks) : Len(d.tasks[k].nodes) > 0
-Quiet(hs) == \A n \in hs : LET d == Decide27(n, hs, {}, {}) IN ~Replicates(d) /\ d.del = "none"
-NoTasks(hs) == \A n \in hs : ~Replicates(Decide27(n, hs, {}, {}))
-k\* a check "replicates" when it hands the replicator a task with at least one candidate node. (With overlapping
-\* rules the code as found keeps calling the replicator with an EMPTY candidate list: a holder remembered from
-\* an earlier rule does not lower the shortage of a later rule - a phantom shortage that copies nothing.)
-Replicates(d) == \E k \in 1..Len(d.tasks) : Len(d.tasks[k].nodes) > 0
-Quiet(hs) == \A n \in hs : LET d == Decide27(n, hs, {}, {}) IN ~Replicates(d) /\ d.del = "none"
-NoTasks(hs) == \A n \in hs : ~Replicates(Decide27(n, hs, {}, {}))
-s\* a check "replicates" when it hands the replicator a task with at least one candidate node. (With overlapping
-\* rules the code as found keeps calling the replicator with an EMPTY candidate list: a holder remembered from
-\* an earlier rule does not lower the shortage of a later rule - a phantom shortage that copies nothing.)
-Replicates(d) == \E k \in 1..Len(d.tasks) : Len(d.tasks[k].nodes) > 0
-Quiet(hs) == \A n \in hs : LET d == Decide27(n, hs, {}, {}) IN ~Replicates(d) /\ d.del = "none"
-NoTasks(hs) == \A n \in hs : ~Replicates(Decide27(n, hs, {}, {}))
- \* a check "replicates" when it hands the replicator a task with at least one candidate node. (With overlapping
-\* rules the code as found keeps calling the replicator with an EMPTY candidate list: a holder remembered from
-\* an earlier rule does not lower the shortage of a later rule - a phantom shortage that copies nothing.)
-Replicates(d) == \E k \in 1..Len(d.tasks) : Len(d.tasks[k].nodes) > 0
-Quiet(hs) == \A n \in hs : LET d == Decide27(n, hs, {}, {}) IN ~Replicates(d) /\ d.del = "none"
-NoTasks(hs) == \A n \in hs : ~Replicates(Decide27(n, hs, {}, {}))
-|\* a check "replicates" when it hands the replicator a task with at least one candidate node. (With overlapping
-\* rules the code as found keeps calling the replicator with an EMPTY candidate list: a holder remembered from
-\* an earlier rule does not lower the shortage of a later rule - a phantom shortage that copies nothing.)
-Replicates(d) == \E k \in 1..Len(d.tasks) : Len(d.tasks[k].nodes) > 0
-Quiet(hs) == \A n \in hs : LET d == Decide27(n, hs, {}, {}) IN ~Replicates(d) /\ d.del = "none"
-NoTasks(hs) == \A n \in hs : ~Replicates(Decide27(n, hs, {}, {}))
--\* a check "replicates" when it hands the replicator a task with at least one candidate node. (With overlapping
-\* rules the code as found keeps calling the replicator with an EMPTY candidate list: a holder remembered from
-\* an earlier rule does not lower the shortage of a later rule - a phantom shortage that copies nothing.)
-Replicates(d) == \E k \in 1..Len(d.tasks) : Len(d.tasks[k].nodes) > 0
-Quiet(hs) == \A n \in hs : LET d == Decide27(n, hs, {}, {}) IN ~Replicates(d) /\ d.del = "none"
-NoTasks(hs) == \A n \in hs : ~Replicates(Decide27(n, hs, {}, {}))
->\* a check "replicates" when it hands the replicator a task with at least one candidate node. (With overlapping
-\* rules the code as found keeps calling the replicator with an EMPTY candidate list: a holder remembered from
-\* an earlier rule does not lower the shortage of a later rule - a phantom shortage that copies nothing.)
-Replicates(d) == \E k \in 1..Len(d.tasks) : Len(d.tasks[k].nodes) > 0
-Quiet(hs) == \A n \in hs : LET d == Decide27(n, hs, {}, {}) IN ~Replicates(d) /\ d.del = "none"
-NoTasks(hs) == \A n \in hs : ~Replicates(Decide27(n, hs, {}, {}))
- \* a check "replicates" when it hands the replicator a task with at least one candidate node. (With overlapping
-\* rules the code as found keeps calling the replicator with an EMPTY candidate list: a holder remembered from
-\* an earlier rule does not lower the shortage of a later rule - a phantom shortage that copies nothing.)
-Replicates(d) == \E k \in 1..Len(d.tasks) : Len(d.tasks[k].nodes) > 0
-Quiet(hs) == \A n \in hs : LET d == Decide27(n, hs, {}, {}) IN ~Replicates(d) /\ d.del = "none"
-NoTasks(hs) == \A n \in hs : ~Replicates(Decide27(n, hs, {}, {}))
-<\* a check "replicates" when it hands the replicator a task with at least one candidate node. (With overlapping
-\* rules the code as found keeps calling the replicator with an EMPTY candidate list: a holder remembered from
-\* an earlier rule does not lower the shortage of a later rule - a phantom shortage that copies nothing.)
-Replicates(d) == \E k \in 1..Len(d.tasks) : Len(d.tasks[k].nodes) > 0
-Quiet(hs) == \A n \in hs : LET d == Decide27(n, hs, {}, {}) IN ~Replicates(d) /\ d.del = "none"
-NoTasks(hs) == \A n \in hs : ~Replicates(Decide27(n, hs, {}, {}))
-<\* a check "replicates" when it hands the replicator a task with at least one candidate node. (With overlapping
-\* rules the code as found keeps calling the replicator with an EMPTY candidate list: a holder remembered from
-\* an earlier rule does not lower the shortage of a later rule - a phantom shortage that copies nothing.)
-Replicates(d) == \E k \in 1..Len(d.tasks) : Len(d.tasks[k].nodes) > 0
-Quiet(hs) == \A n \in hs : LET d == Decide27(n, hs, {}, {}) IN ~Replicates(d) /\ d.del = "none"
-NoTasks(hs) == \A n \in hs : ~Replicates(Decide27(n, hs, {}, {}))
->\* a check "replicates" when it hands the replicator a task with at least one candidate node. (With overlapping
-\* rules the code as found keeps calling the replicator with an EMPTY candidate list: a holder remembered from
-\* an earlier rule does not lower the shortage of a later rule - a phantom shortage that copies nothing.)
-Replicates(d) == \E k \in 1..Len(d.tasks) : Len(d.tasks[k].nodes) > 0
-Quiet(hs) == \A n \in hs : LET d == Decide27(n, hs, {}, {}) IN ~Replicates(d) /\ d.del = "none"
-NoTasks(hs) == \A n \in hs : ~Replicates(Decide27(n, hs, {}, {}))
->\* a check "replicates" when it hands the replicator a task with at least one candidate node. (With overlapping
-\* rules the code as found keeps calling the replicator with an EMPTY candidate list: a holder remembered from
-\* an earlier rule does not lower the shortage of a later rule - a phantom shortage that copies nothing.)
-Replicates(d) == \E k \in 1..Len(d.tasks) : Len(d.tasks[k].nodes) > 0
-Quiet(hs) == \A n \in hs : LET d == Decide27(n, hs, {}, {}) IN ~Replicates(d) /\ d.del = "none"
-NoTasks(hs) == \A n \in hs : ~Replicates(Decide27(n, hs, {}, {}))
-,\* a check "replicates" when it hands the replicator a task with at least one candidate node. (With overlapping
-\* rules the code as found keeps calling the replicator with an EMPTY candidate list: a holder remembered from
-\* an earlier rule does not lower the shortage of a later rule - a phantom shortage that copies nothing.)
-Replicates(d) == \E k \in 1..Len(d.tasks) : Len(d.tasks[k].nodes) > 0
-Quiet(hs) == \A n \in hs : LET d == Decide27(n, hs, {}, {}) IN ~Replicates(d) /\ d.del = "none"
-NoTasks(hs) == \A n \in hs : ~Replicates(Decide27(n, hs, {}, {}))
- \* a check "replicates" when it hands the replicator a task with at least one candidate node. (With overlapping
-\* rules the code as found keeps calling the replicator with an EMPTY candidate list: a holder remembered from
-\* an earlier rule does not lower the shortage of a later rule - a phantom shortage that copies nothing.)
-Replicates(d) == \E k \in 1..Len(d.tasks) : Len(d.tasks[k].nodes) > 0
-Quiet(hs) == \A n \in hs : LET d == Decide27(n, hs, {}, {}) IN ~Replicates(d) /\ d.del = "none"
-NoTasks(hs) == \A n \in hs : ~Replicates(Decide27(n, hs, {}, {}))
-s\* a check "replicates" when it hands the replicator a task with at least one candidate node. (With overlapping
-\* rules the code as found keeps calling the replicator with an EMPTY candidate list: a holder remembered from
-\* an earlier rule does not lower the shortage of a later rule - a phantom shortage that copies nothing.)
-Replicates(d) == \E k \in 1..Len(d.tasks) : Len(d.tasks[k].nodes) > 0
-Quiet(hs) == \A n \in hs : LET d == Decide27(n, hs, {}, {}) IN ~Replicates(d) /\ d.del = "none"
-NoTasks(hs) == \A n \in hs : ~Replicates(Decide27(n, hs, {}, {}))
-t\* a check "replicates" when it hands the replicator a task with at least one candidate node. (With overlapping
-\* rules the code as found keeps calling the replicator with an EMPTY candidate list: a holder remembered from
-\* an earlier rule does not lower the shortage of a later rule - a phantom shortage that copies nothing.)
-Replicates(d) == \E k \in 1..Len(d.tasks) : Len(d.tasks[k].nodes) > 0
-Quiet(hs) == \A n \in hs : LET d == Decide27(n, hs, {}, {}) IN ~Replicates(d) /\ d.del = "none"
-NoTasks(hs) == \A n \in hs : ~Replicates(Decide27(n, hs, {}, {}))
-o\* a check "replicates" when it hands the replicator a task with at least one candidate node. (With overlapping
-\* rules the code as found keeps calling the replicator with an EMPTY candidate list: a holder remembered from
-\* an earlier rule does not lower the shortage of a later rule - a phantom shortage that copies nothing.)
-Replicates(d) == \E k \in 1..Len(d.tasks) : Len(d.tasks[k].nodes) > 0
-Quiet(hs) == \A n \in hs : LET d == Decide27(n, hs, {}, {}) IN ~Replicates(d) /\ d.del = "none"
-NoTasks(hs) == \A n \in hs : ~Replicates(Decide27(n, hs, {}, {}))
-r\* a check "replicates" when it hands the replicator a task with at least one candidate node. (With overlapping
-\* rules the code as found keeps calling the replicator with an EMPTY candidate list: a holder remembered from
-\* an earlier rule does not lower the shortage of a later rule - a phantom shortage that copies nothing.)
-Replicates(d) == \E k \in 1..Len(d.tasks) : Len(d.tasks[k].nodes) > 0
-Quiet(hs) == \A n \in hs : LET d == Decide27(n, hs, {}, {}) IN ~Replicates(d) /\ d.del = "none"
-NoTasks(hs) == \A n \in hs : ~Replicates(Decide27(n, hs, {}, {}))
-e\* a check "replicates" when it hands the replicator a task with at least one candidate node. (With overlapping
-\* rules the code as found keeps calling the replicator with an EMPTY candidate list: a holder remembered from
-\* an earlier rule does not lower the shortage of a later rule - a phantom shortage that copies nothing.)
-Replicates(d) == \E k \in 1..Len(d.tasks) : Len(d.tasks[k].nodes) > 0
-Quiet(hs) == \A n \in hs : LET d == Decide27(n, hs, {}, {}) IN ~Replicates(d) /\ d.del = "none"
-NoTasks(hs) == \A n \in hs : ~Replicates(Decide27(n, hs, {}, {}))
-d\* a check "replicates" when it hands the replicator a task with at least one candidate node. (With overlapping
-\* rules the code as found keeps calling the replicator with an EMPTY candidate list: a holder remembered from
-\* an earlier rule does not lower the shortage of a later rule - a phantom shortage that copies nothing.)
-Replicates(d) == \E k \in 1..Len(d.tasks) : Len(d.tasks[k].nodes) > 0
-Quiet(hs) == \A n \in hs : LET d == Decide27(n, hs, {}, {}) IN ~Replicates(d) /\ d.del = "none"
-NoTasks(hs) == \A n \in hs : ~Replicates(Decide27(n, hs, {}, {}))
- \* a check "replicates" when it hands the replicator a task with at least one candidate node. (With overlapping
-\* rules the code as found keeps calling the replicator with an EMPTY candidate list: a holder remembered from
-\* an earlier rule does not lower the shortage of a later rule - a phantom shortage that copies nothing.)
-Replicates(d) == \E k \in 1..Len(d.tasks) : Len(d.tasks[k].nodes) > 0
-Quiet(hs) == \A n \in hs : LET d == Decide27(n, hs, {}, {}) IN ~Replicates(d) /\ d.del = "none"
-NoTasks(hs) == \A n \in hs : ~Replicates(Decide27(n, hs, {}, {}))
-|\* a check "replicates" when it hands the replicator a task with at least one candidate node. (With overlapping
-\* rules the code as found keeps calling the replicator with an EMPTY candidate list: a holder remembered from
-\* an earlier rule does not lower the shortage of a later rule - a phantom shortage that copies nothing.)
-Replicates(d) == \E k \in 1..Len(d.tasks) : Len(d.tasks[k].nodes) > 0
-Quiet(hs) == \A n \in hs : LET d == Decide27(n, hs, {}, {}) IN ~Replicates(d) /\ d.del = "none"
-NoTasks(hs) == \A n \in hs : ~Replicates(Decide27(n, hs, {}, {}))
--\* a check "replicates" when it hands the replicator a task with at least one candidate node. (With overlapping
-\* rules the code as found keeps calling the replicator with an EMPTY candidate list: a holder remembered from
-\* an earlier rule does not lower the shortage of a later rule - a phantom shortage that copies nothing.)
-Replicates(d) == \E k \in 1..Len(d.tasks) : Len(d.tasks[k].nodes) > 0
-Quiet(hs) == \A n \in hs : LET d == Decide27(n, hs, {}, {}) IN ~Replicates(d) /\ d.del = "none"
-NoTasks(hs) == \A n \in hs : ~Replicates(Decide27(n, hs, {}, {}))
->\* a check "replicates" when it hands the replicator a task with at least one candidate node. (With overlapping
-\* rules the code as found keeps calling the replicator with an EMPTY candidate list: a holder remembered from
-\* an earlier rule does not lower the shortage of a later rule - a phantom shortage that copies nothing.)
-Replicates(d) == \E k \in 1..Len(d.tasks) : Len(d.tasks[k].nodes) > 0
-Quiet(hs) == \A n \in hs : LET d == Decide27(n, hs, {}, {}) IN ~Replicates(d) /\ d.del = "none"
-NoTasks(hs) == \A n \in hs : ~Replicates(Decide27(n, hs, {}, {}))
- \* a check "replicates" when it hands the replicator a task with at least one candidate node. (With overlapping
-\* rules the code as found keeps calling the replicator with an EMPTY candidate list: a holder remembered from
-\* an earlier rule does not lower the shortage of a later rule - a phantom shortage that copies nothing.)
-Replicates(d) == \E k \in 1..Len(d.tasks) : Len(d.tasks[k].nodes) > 0
-Quiet(hs) == \A n \in hs : LET d == Decide27(n, hs, {}, {}) IN ~Replicates(d) /\ d.del = "none"
-NoTasks(hs) == \A n \in hs : ~Replicates(Decide27(n, hs, {}, {}))
-{\* a check "replicates" when it hands the replicator a task with at least one candidate node. (With overlapping
-\* rules the code as found keeps calling the replicator with an EMPTY candidate list: a holder remembered from
-\* an earlier rule does not lower the shortage of a later rule - a phantom shortage that copies nothing.)
-Replicates(d) == \E k \in 1..Len(d.tasks) : Len(d.tasks[k].nodes) > 0
-Quiet(hs) == \A n \in hs : LET d == Decide27(n, hs, {}, {}) IN ~Replicates(d) /\ d.del = "none"
-NoTasks(hs) == \A n \in hs : ~Replicates(Decide27(n, hs, {}, {}))
-}\* a check "replicates" when it hands the replicator a task with at least one candidate node. (With overlapping
-\* rules the code as found keeps calling the replicator with an EMPTY candidate list: a holder remembered from
-\* an earlier rule does not lower the shortage of a later rule - a phantom shortage that copies nothing.)
-Replicates(d) == \E k \in 1..Len(d.tasks) : Len(d.tasks[k].nodes) > 0
-Quiet(hs) == \A n \in hs : LET d == Decide27(n, hs, {}, {}) IN ~Replicates(d) /\ d.del = "none"
-NoTasks(hs) == \A n \in hs : ~Replicates(Decide27(n, hs, {}, {}))
-]\* a check "replicates" when it hands the replicator a task with at least one candidate node. (With overlapping
-\* rules the code as found keeps calling the replicator with an EMPTY candidate list: a holder remembered from
-\* an earlier rule does not lower the shortage of a later rule - a phantom shortage that copies nothing.)
-Replicates(d) == \E k \in 1..Len(d.tasks) : Len(d.tasks[k].nodes) > 0
-Quiet(hs) == \A n \in hs : LET d == Decide27(n, hs, {}, {}) IN ~Replicates(d) /\ d.del = "none"
-NoTasks(hs) == \A n \in hs : ~Replicates(Decide27(n, hs, {}, {}))
-
-\* a check "replicates" when it hands the replicator a task with at least one candidate node. (With overlapping
-\* rules the code as found keeps calling the replicator with an EMPTY candidate list: a holder remembered from
-\* an earlier rule does not lower the shortage of a later rule - a phantom shortage that copies nothing.)
-Replicates(d) == \E k \in 1..Len(d.tasks) : Len(d.tasks[k].nodes) > 0
-Quiet(hs) == \A n \in hs : LET d == Decide27(n, hs, {}, {}) IN ~Replicates(d) /\ d.del = "none"
-NoTasks(hs) == \A n \in hs : ~Replicates(Decide27(n, hs, {}, {}))
-C\* a check "replicates" when it hands the replicator a task with at least one candidate node. (With overlapping
-\* rules the code as found keeps calling the replicator with an EMPTY candidate list: a holder remembered from
-\* an earlier rule does not lower the shortage of a later rule - a phantom shortage that copies nothing.)
-Replicates(d) == \E k \in 1..Len(d.tasks) : Len(d.tasks[k].nodes) > 0
-Quiet(hs) == \A n \in hs : LET d == Decide27(n, hs, {}, {}) IN ~Replicates(d) /\ d.del = "none"
-NoTasks(hs) == \A n \in hs : ~Replicates(Decide27(n, hs, {}, {}))
-I\* a check "replicates" when it hands the replicator a task with at least one candidate node. (With overlapping
-\* rules the code as found keeps calling the replicator with an EMPTY candidate list: a holder remembered from
-\* an earlier rule does not lower the shortage of a later rule - a phantom shortage that copies nothing.)
-Replicates(d) == \E k \in 1..Len(d.tasks) : Len(d.tasks[k].nodes) > 0
-Quiet(hs) == \A n \in hs : LET d == Decide27(n, hs, {}, {}) IN ~Replicates(d) /\ d.del = "none"
-NoTasks(hs) == \A n \in hs : ~Replicates(Decide27(n, hs, {}, {}))
-n\* a check "replicates" when it hands the replicator a task with at least one candidate node. (With overlapping
-\* rules the code as found keeps calling the replicator with an EMPTY candidate list: a holder remembered from
-\* an earlier rule does not lower the shortage of a later rule - a phantom shortage that copies nothing.)
-Replicates(d) == \E k \in 1..Len(d.tasks) : Len(d.tasks[k].nodes) > 0
-Quiet(hs) == \A n \in hs : LET d == Decide27(n, hs, {}, {}) IN ~Replicates(d) /\ d.del = "none"
-NoTasks(hs) == \A n \in hs : ~Replicates(Decide27(n, hs, {}, {}))
-i\* a check "replicates" when it hands the replicator a task with at least one candidate node. (With overlapping
-\* rules the code as found keeps calling the replicator with an EMPTY candidate list: a holder remembered from
-\* an earlier rule does not lower the shortage of a later rule - a phantom shortage that copies nothing.)
-Replicates(d) == \E k \in 1..Len(d.tasks) : Len(d.tasks[k].nodes) > 0
-Quiet(hs) == \A n \in hs : LET d == Decide27(n, hs, {}, {}) IN ~Replicates(d) /\ d.del = "none"
-NoTasks(hs) == \A n \in hs : ~Replicates(Decide27(n, hs, {}, {}))
-t\* a check "replicates" when it hands the replicator a task with at least one candidate node. (With overlapping
-\* rules the code as found keeps calling the replicator with an EMPTY candidate list: a holder remembered from
-\* an earlier rule does not lower the shortage of a later rule - a phantom shortage that copies nothing.)
-Replicates(d) == \E k \in 1..Len(d.tasks) : Len(d.tasks[k].nodes) > 0
-Quiet(hs) == \A n \in hs : LET d == Decide27(n, hs, {}, {}) IN ~Replicates(d) /\ d.del = "none"
-NoTasks(hs) == \A n \in hs : ~Replicates(Decide27(n, hs, {}, {}))
- \* a check "replicates" when it hands the replicator a task with at least one candidate node. (With overlapping
-\* rules the code as found keeps calling the replicator with an EMPTY candidate list: a holder remembered from
-\* an earlier rule does not lower the shortage of a later rule - a phantom shortage that copies nothing.)
-Replicates(d) == \E k \in 1..Len(d.tasks) : Len(d.tasks[k].nodes) > 0
-Quiet(hs) == \A n \in hs : LET d == Decide27(n, hs, {}, {}) IN ~Replicates(d) /\ d.del = "none"
-NoTasks(hs) == \A n \in hs : ~Replicates(Decide27(n, hs, {}, {}))
-=\* a check "replicates" when it hands the replicator a task with at least one candidate node. (With overlapping
-\* rules the code as found keeps calling the replicator with an EMPTY candidate list: a holder remembered from
-\* an earlier rule does not lower the shortage of a later rule - a phantom shortage that copies nothing.)
-Replicates(d) == \E k \in 1..Len(d.tasks) : Len(d.tasks[k].nodes) > 0
-Quiet(hs) == \A n \in hs : LET d == Decide27(n, hs, {}, {}) IN ~Replicates(d) /\ d.del = "none"
-NoTasks(hs) == \A n \in hs : ~Replicates(Decide27(n, hs, {}, {}))
-=\* a check "replicates" when it hands the replicator a task with at least one candidate node. (With overlapping
-\* rules the code as found keeps calling the replicator with an EMPTY candidate list: a holder remembered from
-\* an earlier rule does not lower the shortage of a later rule - a phantom shortage that copies nothing.)
-Replicates(d) == \E k \in 1..Len(d.tasks) : Len(d.tasks[k].nodes) > 0
-Quiet(hs) == \A n \in hs : LET d == Decide27(n, hs, {}, {}) IN ~Replicates(d) /\ d.del = "none"
-NoTasks(hs) == \A n \in hs : ~Replicates(Decide27(n, hs, {}, {}))
- \* a check "replicates" when it hands the replicator a task with at least one candidate node. (With overlapping
-\* rules the code as found keeps calling the replicator with an EMPTY candidate list: a holder remembered from
-\* an earlier rule does not lower the shortage of a later rule - a phantom shortage that copies nothing.)
-Replicates(d) == \E k \in 1..Len(d.tasks) : Len(d.tasks[k].nodes) > 0
-Quiet(hs) == \A n \in hs : LET d == Decide27(n, hs, {}, {}) IN ~Replicates(d) /\ d.del = "none"
-NoTasks(hs) == \A n \in hs : ~Replicates(Decide27(n, hs, {}, {}))
-/\* a check "replicates" when it hands the replicator a task with at least one candidate node. (With overlapping
-\* rules the code as found keeps calling the replicator with an EMPTY candidate list: a holder remembered from
-\* an earlier rule does not lower the shortage of a later rule - a phantom shortage that copies nothing.)
-Replicates(d) == \E k \in 1..Len(d.tasks) : Len(d.tasks[k].nodes) > 0
-Quiet(hs) == \A n \in hs : LET d == Decide27(n, hs, {}, {}) IN ~Replicates(d) /\ d.del = "none"
-NoTasks(hs) == \A n \in hs : ~Replicates(Decide27(n, hs, {}, {}))
-\\* a check "replicates" when it hands the replicator a task with at least one candidate node. (With overlapping
-\* rules the code as found keeps calling the replicator with an EMPTY candidate list: a holder remembered from
-\* an earlier rule does not lower the shortage of a later rule - a phantom shortage that copies nothing.)
-Replicates(d) == \E k \in 1..Len(d.tasks) : Len(d.tasks[k].nodes) > 0
-Quiet(hs) == \A n \in hs : LET d == Decide27(n, hs, {}, {}) IN ~Replicates(d) /\ d.del = "none"
-NoTasks(hs) == \A n \in hs : ~Replicates(Decide27(n, hs, {}, {}))
- \* a check "replicates" when it hands the replicator a task with at least one candidate node. (With overlapping
-\* rules the code as found keeps calling the replicator with an EMPTY candidate list: a holder remembered from
-\* an earlier rule does not lower the shortage of a later rule - a phantom shortage that copies nothing.)
-Replicates(d) == \E k \in 1..Len(d.tasks) : Len(d.tasks[k].nodes) > 0
-Quiet(hs) == \A n \in hs : LET d == Decide27(n, hs, {}, {}) IN ~Replicates(d) /\ d.del = "none"
-NoTasks(hs) == \A n \in hs : ~Replicates(Decide27(n, hs, {}, {}))
-r\* a check "replicates" when it hands the replicator a task with at least one candidate node. (With overlapping
-\* rules the code as found keeps calling the replicator with an EMPTY candidate list: a holder remembered from
-\* an earlier rule does not lower the shortage of a later rule - a phantom shortage that copies nothing.)
-Replicates(d) == \E k \in 1..Len(d.tasks) : Len(d.tasks[k].nodes) > 0
-Quiet(hs) == \A n \in hs : LET d == Decide27(n, hs, {}, {}) IN ~Replicates(d) /\ d.del = "none"
-NoTasks(hs) == \A n \in hs : ~Replicates(Decide27(n, hs, {}, {}))
-u\* a check "replicates" when it hands the replicator a task with at least one candidate node. (With overlapping
-\* rules the code as found keeps calling the replicator with an EMPTY candidate list: a holder remembered from
-\* an earlier rule does not lower the shortage of a later rule - a phantom shortage that copies nothing.)
-Replicates(d) == \E k \in 1..Len(d.tasks) : Len(d.tasks[k].nodes) > 0
-Quiet(hs) == \A n \in hs : LET d == Decide27(n, hs, {}, {}) IN ~Replicates(d) /\ d.del = "none"
-NoTasks(hs) == \A n \in hs : ~Replicates(Decide27(n, hs, {}, {}))
-l\* a check "replicates" when it hands the replicator a task with at least one candidate node. (With overlapping
-\* rules the code as found keeps calling the replicator with an EMPTY candidate list: a holder remembered from
-\* an earlier rule does not lower the shortage of a later rule - a phantom shortage that copies nothing.)
-Replicates(d) == \E k \in 1..Len(d.tasks) : Len(d.tasks[k].nodes) > 0
-Quiet(hs) == \A n \in hs : LET d == Decide27(n, hs, {}, {}) IN ~Replicates(d) /\ d.del = "none"
-NoTasks(hs) == \A n \in hs : ~Replicates(Decide27(n, hs, {}, {}))
-e\* a check "replicates" when it hands the replicator a task with at least one candidate node. (With overlapping
-\* rules the code as found keeps calling the replicator with an EMPTY candidate list: a holder remembered from
-\* an earlier rule does not lower the shortage of a later rule - a phantom shortage that copies nothing.)
-Replicates(d) == \E k \in 1..Len(d.tasks) : Len(d.tasks[k].nodes) > 0
-Quiet(hs) == \A n \in hs : LET d == Decide27(n, hs, {}, {}) IN ~Replicates(d) /\ d.del = "none"
-NoTasks(hs) == \A n \in hs : ~Replicates(Decide27(n, hs, {}, {}))
-s\* a check "replicates" when it hands the replicator a task with at least one candidate node. (With overlapping
-\* rules the code as found keeps calling the replicator with an EMPTY candidate list: a holder remembered from
-\* an earlier rule does not lower the shortage of a later rule - a phantom shortage that copies nothing.)
-Replicates(d) == \E k \in 1..Len(d.tasks) : Len(d.tasks[k].nodes) > 0
-Quiet(hs) == \A n \in hs : LET d == Decide27(n, hs, {}, {}) IN ~Replicates(d) /\ d.del = "none"
-NoTasks(hs) == \A n \in hs : ~Replicates(Decide27(n, hs, {}, {}))
- \* a check "replicates" when it hands the replicator a task with at least one candidate node. (With overlapping
-\* rules the code as found keeps calling the replicator with an EMPTY candidate list: a holder remembered from
-\* an earlier rule does not lower the shortage of a later rule - a phantom shortage that copies nothing.)
-Replicates(d) == \E k \in 1..Len(d.tasks) : Len(d.tasks[k].nodes) > 0
-Quiet(hs) == \A n \in hs : LET d == Decide27(n, hs, {}, {}) IN ~Replicates(d) /\ d.del = "none"
-NoTasks(hs) == \A n \in hs : ~Replicates(Decide27(n, hs, {}, {}))
-\\* a check "replicates" when it hands the replicator a task with at least one candidate node. (With overlapping
-\* rules the code as found keeps calling the replicator with an EMPTY candidate list: a holder remembered from
-\* an earlier rule does not lower the shortage of a later rule - a phantom shortage that copies nothing.)
-Replicates(d) == \E k \in 1..Len(d.tasks) : Len(d.tasks[k].nodes) > 0
-Quiet(hs) == \A n \in hs : LET d == Decide27(n, hs, {}, {}) IN ~Replicates(d) /\ d.del = "none"
-NoTasks(hs) == \A n \in hs : ~Replicates(Decide27(n, hs, {}, {}))
-i\* a check "replicates" when it hands the replicator a task with at least one candidate node. (With overlapping
-\* rules the code as found keeps calling the replicator with an EMPTY candidate list: a holder remembered from
-\* an earlier rule does not lower the shortage of a later rule - a phantom shortage that copies nothing.)
-Replicates(d) == \E k \in 1..Len(d.tasks) : Len(d.tasks[k].nodes) > 0
-Quiet(hs) == \A n \in hs : LET d == Decide27(n, hs, {}, {}) IN ~Replicates(d) /\ d.del = "none"
-NoTasks(hs) == \A n \in hs : ~Replicates(Decide27(n, hs, {}, {}))
-n\* a check "replicates" when it hands the replicator a task with at least one candidate node. (With overlapping
-\* rules the code as found keeps calling the replicator with an EMPTY candidate list: a holder remembered from
-\* an earlier rule does not lower the shortage of a later rule - a phantom shortage that copies nothing.)
-Replicates(d) == \E k \in 1..Len(d.tasks) : Len(d.tasks[k].nodes) > 0
-Quiet(hs) == \A n \in hs : LET d == Decide27(n, hs, {}, {}) IN ~Replicates(d) /\ d.del = "none"
-NoTasks(hs) == \A n \in hs : ~Replicates(Decide27(n, hs, {}, {}))
- \* a check "replicates" when it hands the replicator a task with at least one candidate node. (With overlapping
-\* rules the code as found keeps calling the replicator with an EMPTY candidate list: a holder remembered from
-\* an earlier rule does not lower the shortage of a later rule - a phantom shortage that copies nothing.)
-Replicates(d) == \E k \in 1..Len(d.tasks) : Len(d.tasks[k].nodes) > 0
-Quiet(hs) == \A n \in hs : LET d == Decide27(n, hs, {}, {}) IN ~Replicates(d) /\ d.del = "none"
-NoTasks(hs) == \A n \in hs : ~Replicates(Decide27(n, hs, {}, {}))
-U\* a check "replicates" when it hands the replicator a task with at least one candidate node. (With overlapping
-\* rules the code as found keeps calling the replicator with an EMPTY candidate list: a holder remembered from
-\* an earlier rule does not lower the shortage of a later rule - a phantom shortage that copies nothing.)
-Replicates(d) == \E k \in 1..Len(d.tasks) : Len(d.tasks[k].nodes) > 0
-Quiet(hs) == \A n \in hs : LET d == Decide27(n, hs, {}, {}) IN ~Replicates(d) /\ d.del = "none"
-NoTasks(hs) == \A n \in hs : ~Replicates(Decide27(n, hs, {}, {}))
-N\* a check "replicates" when it hands the replicator a task with at least one candidate node. (With overlapping
-\* rules the code as found keeps calling the replicator with an EMPTY candidate list: a holder remembered from
-\* an earlier rule does not lower the shortage of a later rule - a phantom shortage that copies nothing.)
-Replicates(d) == \E k \in 1..Len(d.tasks) : Len(d.tasks[k].nodes) > 0
-Quiet(hs) == \A n \in hs : LET d == Decide27(n, hs, {}, {}) IN ~Replicates(d) /\ d.del = "none"
-NoTasks(hs) == \A n \in hs : ~Replicates(Decide27(n, hs, {}, {}))
-I\* a check "replicates" when it hands the replicator a task with at least one candidate node. (With overlapping
-\* rules the code as found keeps calling the replicator with an EMPTY candidate list: a holder remembered from
-\* an earlier rule does not lower the shortage of a later rule - a phantom shortage that copies nothing.)
-Replicates(d) == \E k \in 1..Len(d.tasks) : Len(d.tasks[k].nodes) > 0
-Quiet(hs) == \A n \in hs : LET d == Decide27(n, hs, {}, {}) IN ~Replicates(d) /\ d.del = "none"
-NoTasks(hs) == \A n \in hs : ~Replicates(Decide27(n, hs, {}, {}))
-O\* a check "replicates" when it hands the replicator a task with at least one candidate node. (With overlapping
-\* rules the code as found keeps calling the replicator with an EMPTY candidate list: a holder remembered from
-\* an earlier rule does not lower the shortage of a later rule - a phantom shortage that copies nothing.)
-Replicates(d) == \E k \in 1..Len(d.tasks) : Len(d.tasks[k].nodes) > 0
-Quiet(hs) == \A n \in hs : LET d == Decide27(n, hs, {}, {}) IN ~Replicates(d) /\ d.del = "none"
-NoTasks(hs) == \A n \in hs : ~Replicates(Decide27(n, hs, {}, {}))
-N\* a check "replicates" when it hands the replicator a task with at least one candidate node. (With overlapping
-\* rules the code as found keeps calling the replicator with an EMPTY candidate list: a holder remembered from
-\* an earlier rule does not lower the shortage of a later rule - a phantom shortage that copies nothing.)
-Replicates(d) == \E k \in 1..Len(d.tasks) : Len(d.tasks[k].nodes) > 0
-Quiet(hs) == \A n \in hs : LET d == Decide27(n, hs, {}, {}) IN ~Replicates(d) /\ d.del = "none"
-NoTasks(hs) == \A n \in hs : ~Replicates(Decide27(n, hs, {}, {}))
- \* a check "replicates" when it hands the replicator a task with at least one candidate node. (With overlapping
-\* rules the code as found keeps calling the replicator with an EMPTY candidate list: a holder remembered from
-\* an earlier rule does not lower the shortage of a later rule - a phantom shortage that copies nothing.)
-Replicates(d) == \E k \in 1..Len(d.tasks) : Len(d.tasks[k].nodes) > 0
-Quiet(hs) == \A n \in hs : LET d == Decide27(n, hs, {}, {}) IN ~Replicates(d) /\ d.del = "none"
-NoTasks(hs) == \A n \in hs : ~Replicates(Decide27(n, hs, {}, {}))
-{\* a check "replicates" when it hands the replicator a task with at least one candidate node. (With overlapping
-\* rules the code as found keeps calling the replicator with an EMPTY candidate list: a holder remembered from
-\* an earlier rule does not lower the shortage of a later rule - a phantom shortage that copies nothing.)
-Replicates(d) == \E k \in 1..Len(d.tasks) : Len(d.tasks[k].nodes) > 0
-Quiet(hs) == \A n \in hs : LET d == Decide27(n, hs, {}, {}) IN ~Replicates(d) /\ d.del = "none"
-NoTasks(hs) == \A n \in hs : ~Replicates(Decide27(n, hs, {}, {}))
-[\* a check "replicates" when it hands the replicator a task with at least one candidate node. (With overlapping
-\* rules the code as found keeps calling the replicator with an EMPTY candidate list: a holder remembered from
-\* an earlier rule does not lower the shortage of a later rule - a phantom shortage that copies nothing.)
-Replicates(d) == \E k \in 1..Len(d.tasks) : Len(d.tasks[k].nodes) > 0
-Quiet(hs) == \A n \in hs : LET d == Decide27(n, hs, {}, {}) IN ~Replicates(d) /\ d.del = "none"
-NoTasks(hs) == \A n \in hs : ~Replicates(Decide27(n, hs, {}, {}))
-1\* a check "replicates" when it hands the replicator a task with at least one candidate node. (With overlapping
-\* rules the code as found keeps calling the replicator with an EMPTY candidate list: a holder remembered from
-\* an earlier rule does not lower the shortage of a later rule - a phantom shortage that copies nothing.)
-Replicates(d) == \E k \in 1..Len(d.tasks) : Len(d.tasks[k].nodes) > 0
-Quiet(hs) == \A n \in hs : LET d == Decide27(n, hs, {}, {}) IN ~Replicates(d) /\ d.del = "none"
-NoTasks(hs) == \A n \in hs : ~Replicates(Decide27(n, hs, {}, {}))
-.\* a check "replicates" when it hands the replicator a task with at least one candidate node. (With overlapping
-\* rules the code as found keeps calling the replicator with an EMPTY candidate list: a holder remembered from
-\* an earlier rule does not lower the shortage of a later rule - a phantom shortage that copies nothing.)
-Replicates(d) == \E k \in 1..Len(d.tasks) : Len(d.tasks[k].nodes) > 0
-Quiet(hs) == \A n \in hs : LET d == Decide27(n, hs, {}, {}) IN ~Replicates(d) /\ d.del = "none"
-NoTasks(hs) == \A n \in hs : ~Replicates(Decide27(n, hs, {}, {}))
-.\* a check "replicates" when it hands the replicator a task with at least one candidate node. (With overlapping
-\* rules the code as found keeps calling the replicator with an EMPTY candidate list: a holder remembered from
-\* an earlier rule does not lower the shortage of a later rule - a phantom shortage that copies nothing.)
-Replicates(d) == \E k \in 1..Len(d.tasks) : Len(d.tasks[k].nodes) > 0
-Quiet(hs) == \A n \in hs : LET d == Decide27(n, hs, {}, {}) IN ~Replicates(d) /\ d.del = "none"
-NoTasks(hs) == \A n \in hs : ~Replicates(Decide27(n, hs, {}, {}))
-m\* a check "replicates" when it hands the replicator a task with at least one candidate node. (With overlapping
-\* rules the code as found keeps calling the replicator with an EMPTY candidate list: a holder remembered from
-\* an earlier rule does not lower the shortage of a later rule - a phantom shortage that copies nothing.)
-Replicates(d) == \E k \in 1..Len(d.tasks) : Len(d.tasks[k].nodes) > 0
-Quiet(hs) == \A n \in hs : LET d == Decide27(n, hs, {}, {}) IN ~Replicates(d) /\ d.del = "none"
-NoTasks(hs) == \A n \in hs : ~Replicates(Decide27(n, hs, {}, {}))
- \* a check "replicates" when it hands the replicator a task with at least one candidate node. (With overlapping
-\* rules the code as found keeps calling the replicator with an EMPTY candidate list: a holder remembered from
-\* an earlier rule does not lower the shortage of a later rule - a phantom shortage that copies nothing.)
-Replicates(d) == \E k \in 1..Len(d.tasks) : Len(d.tasks[k].nodes) > 0
-Quiet(hs) == \A n \in hs : LET d == Decide27(n, hs, {}, {}) IN ~Replicates(d) /\ d.del = "none"
-NoTasks(hs) == \A n \in hs : ~Replicates(Decide27(n, hs, {}, {}))
--\* a check "replicates" when it hands the replicator a task with at least one candidate node. (With overlapping
-\* rules the code as found keeps calling the replicator with an EMPTY candidate list: a holder remembered from
-\* an earlier rule does not lower the shortage of a later rule - a phantom shortage that copies nothing.)
-Replicates(d) == \E k \in 1..Len(d.tasks) : Len(d.tasks[k].nodes) > 0
-Quiet(hs) == \A n \in hs : LET d == Decide27(n, hs, {}, {}) IN ~Replicates(d) /\ d.del = "none"
-NoTasks(hs) == \A n \in hs : ~Replicates(Decide27(n, hs, {}, {}))
->\* a check "replicates" when it hands the replicator a task with at least one candidate node. (With overlapping
-\* rules the code as found keeps calling the replicator with an EMPTY candidate list: a holder remembered from
-\* an earlier rule does not lower the shortage of a later rule - a phantom shortage that copies nothing.)
-Replicates(d) == \E k \in 1..Len(d.tasks) : Len(d.tasks[k].nodes) > 0
-Quiet(hs) == \A n \in hs : LET d == Decide27(n, hs, {}, {}) IN ~Replicates(d) /\ d.del = "none"
-NoTasks(hs) == \A n \in hs : ~Replicates(Decide27(n, hs, {}, {}))
- \* a check "replicates" when it hands the replicator a task with at least one candidate node. (With overlapping
-\* rules the code as found keeps calling the replicator with an EMPTY candidate list: a holder remembered from
-\* an earlier rule does not lower the shortage of a later rule - a phantom shortage that copies nothing.)
-Replicates(d) == \E k \in 1..Len(d.tasks) : Len(d.tasks[k].nodes) > 0
-Quiet(hs) == \A n \in hs : LET d == Decide27(n, hs, {}, {}) IN ~Replicates(d) /\ d.del = "none"
-NoTasks(hs) == \A n \in hs : ~Replicates(Decide27(n, hs, {}, {}))
-C\* a check "replicates" when it hands the replicator a task with at least one candidate node. (With overlapping
-\* rules the code as found keeps calling the replicator with an EMPTY candidate list: a holder remembered from
-\* an earlier rule does not lower the shortage of a later rule - a phantom shortage that copies nothing.)
-Replicates(d) == \E k \in 1..Len(d.tasks) : Len(d.tasks[k].nodes) > 0
-Quiet(hs) == \A n \in hs : LET d == Decide27(n, hs, {}, {}) IN ~Replicates(d) /\ d.del = "none"
-NoTasks(hs) == \A n \in hs : ~Replicates(Decide27(n, hs, {}, {}))
-R\* a check "replicates" when it hands the replicator a task with at least one candidate node. (With overlapping
-\* rules the code as found keeps calling the replicator with an EMPTY candidate list: a holder remembered from
-\* an earlier rule does not lower the shortage of a later rule - a phantom shortage that copies nothing.)
-Replicates(d) == \E k \in 1..Len(d.tasks) : Len(d.tasks[k].nodes) > 0
-Quiet(hs) == \A n \in hs : LET d == Decide27(n, hs, {}, {}) IN ~Replicates(d) /\ d.del = "none"
-NoTasks(hs) == \A n \in hs : ~Replicates(Decide27(n, hs, {}, {}))
-u\* a check "replicates" when it hands the replicator a task with at least one candidate node. (With overlapping
-\* rules the code as found keeps calling the replicator with an EMPTY candidate list: a holder remembered from
-\* an earlier rule does not lower the shortage of a later rule - a phantom shortage that copies nothing.)
-Replicates(d) == \E k \in 1..Len(d.tasks) : Len(d.tasks[k].nodes) > 0
-Quiet(hs) == \A n \in hs : LET d == Decide27(n, hs, {}, {}) IN ~Replicates(d) /\ d.del = "none"
-NoTasks(hs) == \A n \in hs : ~Replicates(Decide27(n, hs, {}, {}))
-l\* a check "replicates" when it hands the replicator a task with at least one candidate node. (With overlapping
-\* rules the code as found keeps calling the replicator with an EMPTY candidate list: a holder remembered from
-\* an earlier rule does not lower the shortage of a later rule - a phantom shortage that copies nothing.)
-Replicates(d) == \E k \in 1..Len(d.tasks) : Len(d.tasks[k].nodes) > 0
-Quiet(hs) == \A n \in hs : LET d == Decide27(n, hs, {}, {}) IN ~Replicates(d) /\ d.del = "none"
-NoTasks(hs) == \A n \in hs : ~Replicates(Decide27(n, hs, {}, {}))
-e\* a check "replicates" when it hands the replicator a task with at least one candidate node. (With overlapping
-\* rules the code as found keeps calling the replicator with an EMPTY candidate list: a holder remembered from
-\* an earlier rule does not lower the shortage of a later rule - a phantom shortage that copies nothing.)
-Replicates(d) == \E k \in 1..Len(d.tasks) : Len(d.tasks[k].nodes) > 0
-Quiet(hs) == \A n \in hs : LET d == Decide27(n, hs, {}, {}) IN ~Replicates(d) /\ d.del = "none"
-NoTasks(hs) == \A n \in hs : ~Replicates(Decide27(n, hs, {}, {}))
-s\* a check "replicates" when it hands the replicator a task with at least one candidate node. (With overlapping
-\* rules the code as found keeps calling the replicator with an EMPTY candidate list: a holder remembered from
-\* an earlier rule does not lower the shortage of a later rule - a phantom shortage that copies nothing.)
-Replicates(d) == \E k \in 1..Len(d.tasks) : Len(d.tasks[k].nodes) > 0
-Quiet(hs) == \A n \in hs : LET d == Decide27(n, hs, {}, {}) IN ~Replicates(d) /\ d.del = "none"
-NoTasks(hs) == \A n \in hs : ~Replicates(Decide27(n, hs, {}, {}))
-]\* a check "replicates" when it hands the replicator a task with at least one candidate node. (With overlapping
-\* rules the code as found keeps calling the replicator with an EMPTY candidate list: a holder remembered from
-\* an earlier rule does not lower the shortage of a later rule - a phantom shortage that copies nothing.)
-Replicates(d) == \E k \in 1..Len(d.tasks) : Len(d.tasks[k].nodes) > 0
-Quiet(hs) == \A n \in hs : LET d == Decide27(n, hs, {}, {}) IN ~Replicates(d) /\ d.del = "none"
-NoTasks(hs) == \A n \in hs : ~Replicates(Decide27(n, hs, {}, {}))
- \* a check "replicates" when it hands the replicator a task with at least one candidate node. (With overlapping
-\* rules the code as found keeps calling the replicator with an EMPTY candidate list: a holder remembered from
-\* an earlier rule does not lower the shortage of a later rule - a phantom shortage that copies nothing.)
-Replicates(d) == \E k \in 1..Len(d.tasks) : Len(d.tasks[k].nodes) > 0
-Quiet(hs) == \A n \in hs : LET d == Decide27(n, hs, {}, {}) IN ~Replicates(d) /\ d.del = "none"
-NoTasks(hs) == \A n \in hs : ~Replicates(Decide27(n, hs, {}, {}))
-:\* a check "replicates" when it hands the replicator a task with at least one candidate node. (With overlapping
-\* rules the code as found keeps calling the replicator with an EMPTY candidate list: a holder remembered from
-\* an earlier rule does not lower the shortage of a later rule - a phantom shortage that copies nothing.)
-Replicates(d) == \E k \in 1..Len(d.tasks) : Len(d.tasks[k].nodes) > 0
-Quiet(hs) == \A n \in hs : LET d == Decide27(n, hs, {}, {}) IN ~Replicates(d) /\ d.del = "none"
-NoTasks(hs) == \A n \in hs : ~Replicates(Decide27(n, hs, {}, {}))
- \* a check "replicates" when it hands the replicator a task with at least one candidate node. (With overlapping
-\* rules the code as found keeps calling the replicator with an EMPTY candidate list: a holder remembered from
-\* an earlier rule does not lower the shortage of a later rule - a phantom shortage that copies nothing.)
-Replicates(d) == \E k \in 1..Len(d.tasks) : Len(d.tasks[k].nodes) > 0
-Quiet(hs) == \A n \in hs : LET d == Decide27(n, hs, {}, {}) IN ~Replicates(d) /\ d.del = "none"
-NoTasks(hs) == \A n \in hs : ~Replicates(Decide27(n, hs, {}, {}))
-m\* a check "replicates" when it hands the replicator a task with at least one candidate node. (With overlapping
-\* rules the code as found keeps calling the replicator with an EMPTY candidate list: a holder remembered from
-\* an earlier rule does not lower the shortage of a later rule - a phantom shortage that copies nothing.)
-Replicates(d) == \E k \in 1..Len(d.tasks) : Len(d.tasks[k].nodes) > 0
-Quiet(hs) == \A n \in hs : LET d == Decide27(n, hs, {}, {}) IN ~Replicates(d) /\ d.del = "none"
-NoTasks(hs) == \A n \in hs : ~Replicates(Decide27(n, hs, {}, {}))
- \* a check "replicates" when it hands the replicator a task with at least one candidate node. (With overlapping
-\* rules the code as found keeps calling the replicator with an EMPTY candidate list: a holder remembered from
-\* an earlier rule does not lower the shortage of a later rule - a phantom shortage that copies nothing.)
-Replicates(d) == \E k \in 1..Len(d.tasks) : Len(d.tasks[k].nodes) > 0
-Quiet(hs) == \A n \in hs : LET d == Decide27(n, hs, {}, {}) IN ~Replicates(d) /\ d.del = "none"
-NoTasks(hs) == \A n \in hs : ~Replicates(Decide27(n, hs, {}, {}))
-\\* a check "replicates" when it hands the replicator a task with at least one candidate node. (With overlapping
-\* rules the code as found keeps calling the replicator with an EMPTY candidate list: a holder remembered from
-\* an earlier rule does not lower the shortage of a later rule - a phantom shortage that copies nothing.)
-Replicates(d) == \E k \in 1..Len(d.tasks) : Len(d.tasks[k].nodes) > 0
-Quiet(hs) == \A n \in hs : LET d == Decide27(n, hs, {}, {}) IN ~Replicates(d) /\ d.del = "none"
-NoTasks(hs) == \A n \in hs : ~Replicates(Decide27(n, hs, {}, {}))
-i\* a check "replicates" when it hands the replicator a task with at least one candidate node. (With overlapping
-\* rules the code as found keeps calling the replicator with an EMPTY candidate list: a holder remembered from
-\* an earlier rule does not lower the shortage of a later rule - a phantom shortage that copies nothing.)
-Replicates(d) == \E k \in 1..Len(d.tasks) : Len(d.tasks[k].nodes) > 0
-Quiet(hs) == \A n \in hs : LET d == Decide27(n, hs, {}, {}) IN ~Replicates(d) /\ d.del = "none"
-NoTasks(hs) == \A n \in hs : ~Replicates(Decide27(n, hs, {}, {}))
-n\* a check "replicates" when it hands the replicator a task with at least one candidate node. (With overlapping
-\* rules the code as found keeps calling the replicator with an EMPTY candidate list: a holder remembered from
-\* an earlier rule does not lower the shortage of a later rule - a phantom shortage that copies nothing.)
-Replicates(d) == \E k \in 1..Len(d.tasks) : Len(d.tasks[k].nodes) > 0
-Quiet(hs) == \A n \in hs : LET d == Decide27(n, hs, {}, {}) IN ~Replicates(d) /\ d.del = "none"
-NoTasks(hs) == \A n \in hs : ~Replicates(Decide27(n, hs, {}, {}))
- \* a check "replicates" when it hands the replicator a task with at least one candidate node. (With overlapping
-\* rules the code as found keeps calling the replicator with an EMPTY candidate list: a holder remembered from
-\* an earlier rule does not lower the shortage of a later rule - a phantom shortage that copies nothing.)
-Replicates(d) == \E k \in 1..Len(d.tasks) : Len(d.tasks[k].nodes) > 0
-Quiet(hs) == \A n \in hs : LET d == Decide27(n, hs, {}, {}) IN ~Replicates(d) /\ d.del = "none"
-NoTasks(hs) == \A n \in hs : ~Replicates(Decide27(n, hs, {}, {}))
-R\* a check "replicates" when it hands the replicator a task with at least one candidate node. (With overlapping
-\* rules the code as found keeps calling the replicator with an EMPTY candidate list: a holder remembered from
-\* an earlier rule does not lower the shortage of a later rule - a phantom shortage that copies nothing.)
-Replicates(d) == \E k \in 1..Len(d.tasks) : Len(d.tasks[k].nodes) > 0
-Quiet(hs) == \A n \in hs : LET d == Decide27(n, hs, {}, {}) IN ~Replicates(d) /\ d.del = "none"
-NoTasks(hs) == \A n \in hs : ~Replicates(Decide27(n, hs, {}, {}))
-u\* a check "replicates" when it hands the replicator a task with at least one candidate node. (With overlapping
-\* rules the code as found keeps calling the replicator with an EMPTY candidate list: a holder remembered from
-\* an earlier rule does not lower the shortage of a later rule - a phantom shortage that copies nothing.)
-Replicates(d) == \E k \in 1..Len(d.tasks) : Len(d.tasks[k].nodes) > 0
-Quiet(hs) == \A n \in hs : LET d == Decide27(n, hs, {}, {}) IN ~Replicates(d) /\ d.del = "none"
-NoTasks(hs) == \A n \in hs : ~Replicates(Decide27(n, hs, {}, {}))
-l\* a check "replicates" when it hands the replicator a task with at least one candidate node. (With overlapping
-\* rules the code as found keeps calling the replicator with an EMPTY candidate list: a holder remembered from
-\* an earlier rule does not lower the shortage of a later rule - a phantom shortage that copies nothing.)
-Replicates(d) == \E k \in 1..Len(d.tasks) : Len(d.tasks[k].nodes) > 0
-Quiet(hs) == \A n \in hs : LET d == Decide27(n, hs, {}, {}) IN ~Replicates(d) /\ d.del = "none"
-NoTasks(hs) == \A n \in hs : ~Replicates(Decide27(n, hs, {}, {}))
-e\* a check "replicates" when it hands the replicator a task with at least one candidate node. (With overlapping
-\* rules the code as found keeps calling the replicator with an EMPTY candidate list: a holder remembered from
-\* an earlier rule does not lower the shortage of a later rule - a phantom shortage that copies nothing.)
-Replicates(d) == \E k \in 1..Len(d.tasks) : Len(d.tasks[k].nodes) > 0
-Quiet(hs) == \A n \in hs : LET d == Decide27(n, hs, {}, {}) IN ~Replicates(d) /\ d.del = "none"
-NoTasks(hs) == \A n \in hs : ~Replicates(Decide27(n, hs, {}, {}))
-C\* a check "replicates" when it hands the replicator a task with at least one candidate node. (With overlapping
-\* rules the code as found keeps calling the replicator with an EMPTY candidate list: a holder remembered from
-\* an earlier rule does not lower the shortage of a later rule - a phantom shortage that copies nothing.)
-Replicates(d) == \E k \in 1..Len(d.tasks) : Len(d.tasks[k].nodes) > 0
-Quiet(hs) == \A n \in hs : LET d == Decide27(n, hs, {}, {}) IN ~Replicates(d) /\ d.del = "none"
-NoTasks(hs) == \A n \in hs : ~Replicates(Decide27(n, hs, {}, {}))
-o\* a check "replicates" when it hands the replicator a task with at least one candidate node. (With overlapping
-\* rules the code as found keeps calling the replicator with an EMPTY candidate list: a holder remembered from
-\* an earlier rule does not lower the shortage of a later rule - a phantom shortage that copies nothing.)
-Replicates(d) == \E k \in 1..Len(d.tasks) : Len(d.tasks[k].nodes) > 0
-Quiet(hs) == \A n \in hs : LET d == Decide27(n, hs, {}, {}) IN ~Replicates(d) /\ d.del = "none"
-NoTasks(hs) == \A n \in hs : ~Replicates(Decide27(n, hs, {}, {}))
-u\* a check "replicates" when it hands the replicator a task with at least one candidate node. (With overlapping
-\* rules the code as found keeps calling the replicator with an EMPTY candidate list: a holder remembered from
-\* an earlier rule does not lower the shortage of a later rule - a phantom shortage that copies nothing.)
-Replicates(d) == \E k \in 1..Len(d.tasks) : Len(d.tasks[k].nodes) > 0
-Quiet(hs) == \A n \in hs : LET d == Decide27(n, hs, {}, {}) IN ~Replicates(d) /\ d.del = "none"
-NoTasks(hs) == \A n \in hs : ~Replicates(Decide27(n, hs, {}, {}))
-n\* a check "replicates" when it hands the replicator a task with at least one candidate node. (With overlapping
-\* rules the code as found keeps calling the replicator with an EMPTY candidate list: a holder remembered from
-\* an earlier rule does not lower the shortage of a later rule - a phantom shortage that copies nothing.)
-Replicates(d) == \E k \in 1..Len(d.tasks) : Len(d.tasks[k].nodes) > 0
-Quiet(hs) == \A n \in hs : LET d == Decide27(n, hs, {}, {}) IN ~Replicates(d) /\ d.del = "none"
-NoTasks(hs) == \A n \in hs : ~Replicates(Decide27(n, hs, {}, {}))
-t\* a check "replicates" when it hands the replicator a task with at least one candidate node. (With overlapping
-\* rules the code as found keeps calling the replicator with an EMPTY candidate list: a holder remembered from
-\* an earlier rule does not lower the shortage of a later rule - a phantom shortage that copies nothing.)
-Replicates(d) == \E k \in 1..Len(d.tasks) : Len(d.tasks[k].nodes) > 0
-Quiet(hs) == \A n \in hs : LET d == Decide27(n, hs, {}, {}) IN ~Replicates(d) /\ d.del = "none"
-NoTasks(hs) == \A n \in hs : ~Replicates(Decide27(n, hs, {}, {}))
-s\* a check "replicates" when it hands the replicator a task with at least one candidate node. (With overlapping
-\* rules the code as found keeps calling the replicator with an EMPTY candidate list: a holder remembered from
-\* an earlier rule does not lower the shortage of a later rule - a phantom shortage that copies nothing.)
-Replicates(d) == \E k \in 1..Len(d.tasks) : Len(d.tasks[k].nodes) > 0
-Quiet(hs) == \A n \in hs : LET d == Decide27(n, hs, {}, {}) IN ~Replicates(d) /\ d.del = "none"
-NoTasks(hs) == \A n \in hs : ~Replicates(Decide27(n, hs, {}, {}))
-}\* a check "replicates" when it hands the replicator a task with at least one candidate node. (With overlapping
-\* rules the code as found keeps calling the replicator with an EMPTY candidate list: a holder remembered from
-\* an earlier rule does not lower the shortage of a later rule - a phantom shortage that copies nothing.)
-Replicates(d) == \E k \in 1..Len(d.tasks) : Len(d.tasks[k].nodes) > 0
-Quiet(hs) == \A n \in hs : LET d == Decide27(n, hs, {}, {}) IN ~Replicates(d) /\ d.del = "none"
-NoTasks(hs) == \A n \in hs : ~Replicates(Decide27(n, hs, {}, {}))
-
-\* a check "replicates" when it hands the replicator a task with at least one candidate node. (With overlapping
-\* rules the code as found keeps calling the replicator with an EMPTY candidate list: a holder remembered from
-\* an earlier rule does not lower the shortage of a later rule - a phantom shortage that copies nothing.)
-Replicates(d) == \E k \in 1..Len(d.tasks) : Len(d.tasks[k].nodes) > 0
-Quiet(hs) == \A n \in hs : LET d == Decide27(n, hs, {}, {}) IN ~Replicates(d) /\ d.del = "none"
-NoTasks(hs) == \A n \in hs : ~Replicates(Decide27(n, hs, {}, {}))
- \* a check "replicates" when it hands the replicator a task with at least one candidate node. (With overlapping
-\* rules the code as found keeps calling the replicator with an EMPTY candidate list: a holder remembered from
-\* an earlier rule does not lower the shortage of a later rule - a phantom shortage that copies nothing.)
-Replicates(d) == \E k \in 1..Len(d.tasks) : Len(d.tasks[k].nodes) > 0
-Quiet(hs) == \A n \in hs : LET d == Decide27(n, hs, {}, {}) IN ~Replicates(d) /\ d.del = "none"
-NoTasks(hs) == \A n \in hs : ~Replicates(Decide27(n, hs, {}, {}))
- \* a check "replicates" when it hands the replicator a task with at least one candidate node. (With overlapping
-\* rules the code as found keeps calling the replicator with an EMPTY candidate list: a holder remembered from
-\* an earlier rule does not lower the shortage of a later rule - a phantom shortage that copies nothing.)
-Replicates(d) == \E k \in 1..Len(d.tasks) : Len(d.tasks[k].nodes) > 0
-Quiet(hs) == \A n \in hs : LET d == Decide27(n, hs, {}, {}) IN ~Replicates(d) /\ d.del = "none"
-NoTasks(hs) == \A n \in hs : ~Replicates(Decide27(n, hs, {}, {}))
- \* a check "replicates" when it hands the replicator a task with at least one candidate node. (With overlapping
-\* rules the code as found keeps calling the replicator with an EMPTY candidate list: a holder remembered from
-\* an earlier rule does not lower the shortage of a later rule - a phantom shortage that copies nothing.)
-Replicates(d) == \E k \in 1..Len(d.tasks) : Len(d.tasks[k].nodes) > 0
-Quiet(hs) == \A n \in hs : LET d == Decide27(n, hs, {}, {}) IN ~Replicates(d) /\ d.del = "none"
-NoTasks(hs) == \A n \in hs : ~Replicates(Decide27(n, hs, {}, {}))
- \* a check "replicates" when it hands the replicator a task with at least one candidate node. (With overlapping
-\* rules the code as found keeps calling the replicator with an EMPTY candidate list: a holder remembered from
-\* an earlier rule does not lower the shortage of a later rule - a phantom shortage that copies nothing.)
-Replicates(d) == \E k \in 1..Len(d.tasks) : Len(d.tasks[k].nodes) > 0
-Quiet(hs) == \A n \in hs : LET d == Decide27(n, hs, {}, {}) IN ~Replicates(d) /\ d.del = "none"
-NoTasks(hs) == \A n \in hs : ~Replicates(Decide27(n, hs, {}, {}))
- \* a check "replicates" when it hands the replicator a task with at least one candidate node. (With overlapping
-\* rules the code as found keeps calling the replicator with an EMPTY candidate list: a holder remembered from
-\* an earlier rule does not lower the shortage of a later rule - a phantom shortage that copies nothing.)
-Replicates(d) == \E k \in 1..Len(d.tasks) : Len(d.tasks[k].nodes) > 0
-Quiet(hs) == \A n \in hs : LET d == Decide27(n, hs, {}, {}) IN ~Replicates(d) /\ d.del = "none"
-NoTasks(hs) == \A n \in hs : ~Replicates(Decide27(n, hs, {}, {}))
- \* a check "replicates" when it hands the replicator a task with at least one candidate node. (With overlapping
-\* rules the code as found keeps calling the replicator with an EMPTY candidate list: a holder remembered from
-\* an earlier rule does not lower the shortage of a later rule - a phantom shortage that copies nothing.)
-Replicates(d) == \E k \in 1..Len(d.tasks) : Len(d.tasks[k].nodes) > 0
-Quiet(hs) == \A n \in hs : LET d == Decide27(n, hs, {}, {}) IN ~Replicates(d) /\ d.del = "none"
-NoTasks(hs) == \A n \in hs : ~Replicates(Decide27(n, hs, {}, {}))
- \* a check "replicates" when it hands the replicator a task with at least one candidate node. (With overlapping
-\* rules the code as found keeps calling the replicator with an EMPTY candidate list: a holder remembered from
-\* an earlier rule does not lower the shortage of a later rule - a phantom shortage that copies nothing.)
-Replicates(d) == \E k \in 1..Len(d.tasks) : Len(d.tasks[k].nodes) > 0
-Quiet(hs) == \A n \in hs : LET d == Decide27(n, hs, {}, {}) IN ~Replicates(d) /\ d.del = "none"
-NoTasks(hs) == \A n \in hs : ~Replicates(Decide27(n, hs, {}, {}))
- \* a check "replicates" when it hands the replicator a task with at least one candidate node. (With overlapping
-\* rules the code as found keeps calling the replicator with an EMPTY candidate list: a holder remembered from
-\* an earlier rule does not lower the shortage of a later rule - a phantom shortage that copies nothing.)
-Replicates(d) == \E k \in 1..Len(d.tasks) : Len(d.tasks[k].nodes) > 0
-Quiet(hs) == \A n \in hs : LET d == Decide27(n, hs, {}, {}) IN ~Replicates(d) /\ d.del = "none"
-NoTasks(hs) == \A n \in hs : ~Replicates(Decide27(n, hs, {}, {}))
- \* a check "replicates" when it hands the replicator a task with at least one candidate node. (With overlapping
-\* rules the code as found keeps calling the replicator with an EMPTY candidate list: a holder remembered from
-\* an earlier rule does not lower the shortage of a later rule - a phantom shortage that copies nothing.)
-Replicates(d) == \E k \in 1..Len(d.tasks) : Len(d.tasks[k].nodes) > 0
-Quiet(hs) == \A n \in hs : LET d == Decide27(n, hs, {}, {}) IN ~Replicates(d) /\ d.del = "none"
-NoTasks(hs) == \A n \in hs : ~Replicates(Decide27(n, hs, {}, {}))
-/\* a check "replicates" when it hands the replicator a task with at least one candidate node. (With overlapping
-\* rules the code as found keeps calling the replicator with an EMPTY candidate list: a holder remembered from
-\* an earlier rule does not lower the shortage of a later rule - a phantom shortage that copies nothing.)
-Replicates(d) == \E k \in 1..Len(d.tasks) : Len(d.tasks[k].nodes) > 0
-Quiet(hs) == \A n \in hs : LET d == Decide27(n, hs, {}, {}) IN ~Replicates(d) /\ d.del = "none"
-NoTasks(hs) == \A n \in hs : ~Replicates(Decide27(n, hs, {}, {}))
-\\* a check "replicates" when it hands the replicator a task with at least one candidate node. (With overlapping
-\* rules the code as found keeps calling the replicator with an EMPTY candidate list: a holder remembered from
-\* an earlier rule does not lower the shortage of a later rule - a phantom shortage that copies nothing.)
-Replicates(d) == \E k \in 1..Len(d.tasks) : Len(d.tasks[k].nodes) > 0
-Quiet(hs) == \A n \in hs : LET d == Decide27(n, hs, {}, {}) IN ~Replicates(d) /\ d.del = "none"
-NoTasks(hs) == \A n \in hs : ~Replicates(Decide27(n, hs, {}, {}))
- \* a check "replicates" when it hands the replicator a task with at least one candidate node. (With overlapping
-\* rules the code as found keeps calling the replicator with an EMPTY candidate list: a holder remembered from
-\* an earlier rule does not lower the shortage of a later rule - a phantom shortage that copies nothing.)
-Replicates(d) == \E k \in 1..Len(d.tasks) : Len(d.tasks[k].nodes) > 0
-Quiet(hs) == \A n \in hs : LET d == Decide27(n, hs, {}, {}) IN ~Replicates(d) /\ d.del = "none"
-NoTasks(hs) == \A n \in hs : ~Replicates(Decide27(n, hs, {}, {}))
-h\* a check "replicates" when it hands the replicator a task with at least one candidate node. (With overlapping
-\* rules the code as found keeps calling the replicator with an EMPTY candidate list: a holder remembered from
-\* an earlier rule does not lower the shortage of a later rule - a phantom shortage that copies nothing.)
-Replicates(d) == \E k \in 1..Len(d.tasks) : Len(d.tasks[k].nodes) > 0
-Quiet(hs) == \A n \in hs : LET d == Decide27(n, hs, {}, {}) IN ~Replicates(d) /\ d.del = "none"
-NoTasks(hs) == \A n \in hs : ~Replicates(Decide27(n, hs, {}, {}))
-o\* a check "replicates" when it hands the replicator a task with at least one candidate node. (With overlapping
-\* rules the code as found keeps calling the replicator with an EMPTY candidate list: a holder remembered from
-\* an earlier rule does not lower the shortage of a later rule - a phantom shortage that copies nothing.)
-Replicates(d) == \E k \in 1..Len(d.tasks) : Len(d.tasks[k].nodes) > 0
-Quiet(hs) == \A n \in hs : LET d == Decide27(n, hs, {}, {}) IN ~Replicates(d) /\ d.del = "none"
-NoTasks(hs) == \A n \in hs : ~Replicates(Decide27(n, hs, {}, {}))
-l\* a check "replicates" when it hands the replicator a task with at least one candidate node. (With overlapping
-\* rules the code as found keeps calling the replicator with an EMPTY candidate list: a holder remembered from
-\* an earlier rule does not lower the shortage of a later rule - a phantom shortage that copies nothing.)
-Replicates(d) == \E k \in 1..Len(d.tasks) : Len(d.tasks[k].nodes) > 0
-Quiet(hs) == \A n \in hs : LET d == Decide27(n, hs, {}, {}) IN ~Replicates(d) /\ d.del = "none"
-NoTasks(hs) == \A n \in hs : ~Replicates(Decide27(n, hs, {}, {}))
-d\* a check "replicates" when it hands the replicator a task with at least one candidate node. (With overlapping
-\* rules the code as found keeps calling the replicator with an EMPTY candidate list: a holder remembered from
-\* an earlier rule does not lower the shortage of a later rule - a phantom shortage that copies nothing.)
-Replicates(d) == \E k \in 1..Len(d.tasks) : Len(d.tasks[k].nodes) > 0
-Quiet(hs) == \A n \in hs : LET d == Decide27(n, hs, {}, {}) IN ~Replicates(d) /\ d.del = "none"
-NoTasks(hs) == \A n \in hs : ~Replicates(Decide27(n, hs, {}, {}))
-e\* a check "replicates" when it hands the replicator a task with at least one candidate node. (With overlapping
-\* rules the code as found keeps calling the replicator with an EMPTY candidate list: a holder remembered from
-\* an earlier rule does not lower the shortage of a later rule - a phantom shortage that copies nothing.)
-Replicates(d) == \E k \in 1..Len(d.tasks) : Len(d.tasks[k].nodes) > 0
-Quiet(hs) == \A n \in hs : LET d == Decide27(n, hs, {}, {}) IN ~Replicates(d) /\ d.del = "none"
-NoTasks(hs) == \A n \in hs : ~Replicates(Decide27(n, hs, {}, {}))
-r\* a check "replicates" when it hands the replicator a task with at least one candidate node. (With overlapping
-\* rules the code as found keeps calling the replicator with an EMPTY candidate list: a holder remembered from
-\* an earlier rule does not lower the shortage of a later rule - a phantom shortage that copies nothing.)
-Replicates(d) == \E k \in 1..Len(d.tasks) : Len(d.tasks[k].nodes) > 0
-Quiet(hs) == \A n \in hs : LET d == Decide27(n, hs, {}, {}) IN ~Replicates(d) /\ d.del = "none"
-NoTasks(hs) == \A n \in hs : ~Replicates(Decide27(n, hs, {}, {}))
-s\* a check "replicates" when it hands the replicator a task with at least one candidate node. (With overlapping
-\* rules the code as found keeps calling the replicator with an EMPTY candidate list: a holder remembered from
-\* an earlier rule does not lower the shortage of a later rule - a phantom shortage that copies nothing.)
-Replicates(d) == \E k \in 1..Len(d.tasks) : Len(d.tasks[k].nodes) > 0
-Quiet(hs) == \A n \in hs : LET d == Decide27(n, hs, {}, {}) IN ~Replicates(d) /\ d.del = "none"
-NoTasks(hs) == \A n \in hs : ~Replicates(Decide27(n, hs, {}, {}))
- \* a check "replicates" when it hands the replicator a task with at least one candidate node. (With overlapping
-\* rules the code as found keeps calling the replicator with an EMPTY candidate list: a holder remembered from
-\* an earlier rule does not lower the shortage of a later rule - a phantom shortage that copies nothing.)
-Replicates(d) == \E k \in 1..Len(d.tasks) : Len(d.tasks[k].nodes) > 0
-Quiet(hs) == \A n \in hs : LET d == Decide27(n, hs, {}, {}) IN ~Replicates(d) /\ d.del = "none"
-NoTasks(hs) == \A n \in hs : ~Replicates(Decide27(n, hs, {}, {}))
-\\* a check "replicates" when it hands the replicator a task with at least one candidate node. (With overlapping
-\* rules the code as found keeps calling the replicator with an EMPTY candidate list: a holder remembered from
-\* an earlier rule does not lower the shortage of a later rule - a phantom shortage that copies nothing.)
-Replicates(d) == \E k \in 1..Len(d.tasks) : Len(d.tasks[k].nodes) > 0
-Quiet(hs) == \A n \in hs : LET d == Decide27(n, hs, {}, {}) IN ~Replicates(d) /\ d.del = "none"
-NoTasks(hs) == \A n \in hs : ~Replicates(Decide27(n, hs, {}, {}))
-i\* a check "replicates" when it hands the replicator a task with at least one candidate node. (With overlapping
-\* rules the code as found keeps calling the replicator with an EMPTY candidate list: a holder remembered from
-\* an earlier rule does not lower the shortage of a later rule - a phantom shortage that copies nothing.)
-Replicates(d) == \E k \in 1..Len(d.tasks) : Len(d.tasks[k].nodes) > 0
-Quiet(hs) == \A n \in hs : LET d == Decide27(n, hs, {}, {}) IN ~Replicates(d) /\ d.del = "none"
-NoTasks(hs) == \A n \in hs : ~Replicates(Decide27(n, hs, {}, {}))
-n\* a check "replicates" when it hands the replicator a task with at least one candidate node. (With overlapping
-\* rules the code as found keeps calling the replicator with an EMPTY candidate list: a holder remembered from
-\* an earlier rule does not lower the shortage of a later rule - a phantom shortage that copies nothing.)
-Replicates(d) == \E k \in 1..Len(d.tasks) : Len(d.tasks[k].nodes) > 0
-Quiet(hs) == \A n \in hs : LET d == Decide27(n, hs, {}, {}) IN ~Replicates(d) /\ d.del = "none"
-NoTasks(hs) == \A n \in hs : ~Replicates(Decide27(n, hs, {}, {}))
- \* a check "replicates" when it hands the replicator a task with at least one candidate node. (With overlapping
-\* rules the code as found keeps calling the replicator with an EMPTY candidate list: a holder remembered from
-\* an earlier rule does not lower the shortage of a later rule - a phantom shortage that copies nothing.)
-Replicates(d) == \E k \in 1..Len(d.tasks) : Len(d.tasks[k].nodes) > 0
-Quiet(hs) == \A n \in hs : LET d == Decide27(n, hs, {}, {}) IN ~Replicates(d) /\ d.del = "none"
-NoTasks(hs) == \A n \in hs : ~Replicates(Decide27(n, hs, {}, {}))
-(\* a check "replicates" when it hands the replicator a task with at least one candidate node. (With overlapping
-\* rules the code as found keeps calling the replicator with an EMPTY candidate list: a holder remembered from
-\* an earlier rule does not lower the shortage of a later rule - a phantom shortage that copies nothing.)
-Replicates(d) == \E k \in 1..Len(d.tasks) : Len(d.tasks[k].nodes) > 0
-Quiet(hs) == \A n \in hs : LET d == Decide27(n, hs, {}, {}) IN ~Replicates(d) /\ d.del = "none"
-NoTasks(hs) == \A n \in hs : ~Replicates(Decide27(n, hs, {}, {}))
-S\* a check "replicates" when it hands the replicator a task with at least one candidate node. (With overlapping
-\* rules the code as found keeps calling the replicator with an EMPTY candidate list: a holder remembered from
-\* an earlier rule does not lower the shortage of a later rule - a phantom shortage that copies nothing.)
-Replicates(d) == \E k \in 1..Len(d.tasks) : Len(d.tasks[k].nodes) > 0
-Quiet(hs) == \A n \in hs : LET d == Decide27(n, hs, {}, {}) IN ~Replicates(d) /\ d.del = "none"
-NoTasks(hs) == \A n \in hs : ~Replicates(Decide27(n, hs, {}, {}))
-U\* a check "replicates" when it hands the replicator a task with at least one candidate node. (With overlapping
-\* rules the code as found keeps calling the replicator with an EMPTY candidate list: a holder remembered from
-\* an earlier rule does not lower the shortage of a later rule - a phantom shortage that copies nothing.)
-Replicates(d) == \E k \in 1..Len(d.tasks) : Len(d.tasks[k].nodes) > 0
-Quiet(hs) == \A n \in hs : LET d == Decide27(n, hs, {}, {}) IN ~Replicates(d) /\ d.del = "none"
-NoTasks(hs) == \A n \in hs : ~Replicates(Decide27(n, hs, {}, {}))
-B\* a check "replicates" when it hands the replicator a task with at least one candidate node. (With overlapping
-\* rules the code as found keeps calling the replicator with an EMPTY candidate list: a holder remembered from
-\* an earlier rule does not lower the shortage of a later rule - a phantom shortage that copies nothing.)
-Replicates(d) == \E k \in 1..Len(d.tasks) : Len(d.tasks[k].nodes) > 0
-Quiet(hs) == \A n \in hs : LET d == Decide27(n, hs, {}, {}) IN ~Replicates(d) /\ d.del = "none"
-NoTasks(hs) == \A n \in hs : ~Replicates(Decide27(n, hs, {}, {}))
-S\* a check "replicates" when it hands the replicator a task with at least one candidate node. (With overlapping
-\* rules the code as found keeps calling the replicator with an EMPTY candidate list: a holder remembered from
-\* an earlier rule does not lower the shortage of a later rule - a phantom shortage that copies nothing.)
-Replicates(d) == \E k \in 1..Len(d.tasks) : Len(d.tasks[k].nodes) > 0
-Quiet(hs) == \A n \in hs : LET d == Decide27(n, hs, {}, {}) IN ~Replicates(d) /\ d.del = "none"
-NoTasks(hs) == \A n \in hs : ~Replicates(Decide27(n, hs, {}, {}))
-E\* a check "replicates" when it hands the replicator a task with at least one candidate node. (With overlapping
-\* rules the code as found keeps calling the replicator with an EMPTY candidate list: a holder remembered from
-\* an earlier rule does not lower the shortage of a later rule - a phantom shortage that copies nothing.)
-Replicates(d) == \E k \in 1..Len(d.tasks) : Len(d.tasks[k].nodes) > 0
-Quiet(hs) == \A n \in hs : LET d == Decide27(n, hs, {}, {}) IN ~Replicates(d) /\ d.del = "none"
-NoTasks(hs) == \A n \in hs : ~Replicates(Decide27(n, hs, {}, {}))
-T\* a check "replicates" when it hands the replicator a task with at least one candidate node. (With overlapping
-\* rules the code as found keeps calling the replicator with an EMPTY candidate list: a holder remembered from
-\* an earlier rule does not lower the shortage of a later rule - a phantom shortage that copies nothing.)
-Replicates(d) == \E k \in 1..Len(d.tasks) : Len(d.tasks[k].nodes) > 0
-Quiet(hs) == \A n \in hs : LET d == Decide27(n, hs, {}, {}) IN ~Replicates(d) /\ d.del = "none"
-NoTasks(hs) == \A n \in hs : ~Replicates(Decide27(n, hs, {}, {}))
- \* a check "replicates" when it hands the replicator a task with at least one candidate node. (With overlapping
-\* rules the code as found keeps calling the replicator with an EMPTY candidate list: a holder remembered from
-\* an earlier rule does not lower the shortage of a later rule - a phantom shortage that copies nothing.)
-Replicates(d) == \E k \in 1..Len(d.tasks) : Len(d.tasks[k].nodes) > 0
-Quiet(hs) == \A n \in hs : LET d == Decide27(n, hs, {}, {}) IN ~Replicates(d) /\ d.del = "none"
-NoTasks(hs) == \A n \in hs : ~Replicates(Decide27(n, hs, {}, {}))
-C\* a check "replicates" when it hands the replicator a task with at least one candidate node. (With overlapping
-\* rules the code as found keeps calling the replicator with an EMPTY candidate list: a holder remembered from
-\* an earlier rule does not lower the shortage of a later rule - a phantom shortage that copies nothing.)
-Replicates(d) == \E k \in 1..Len(d.tasks) : Len(d.tasks[k].nodes) > 0
-Quiet(hs) == \A n \in hs : LET d == Decide27(n, hs, {}, {}) IN ~Replicates(d) /\ d.del = "none"
-NoTasks(hs) == \A n \in hs : ~Replicates(Decide27(n, hs, {}, {}))
-l\* a check "replicates" when it hands the replicator a task with at least one candidate node. (With overlapping
-\* rules the code as found keeps calling the replicator with an EMPTY candidate list: a holder remembered from
-\* an earlier rule does not lower the shortage of a later rule - a phantom shortage that copies nothing.)
-Replicates(d) == \E k \in 1..Len(d.tasks) : Len(d.tasks[k].nodes) > 0
-Quiet(hs) == \A n \in hs : LET d == Decide27(n, hs, {}, {}) IN ~Replicates(d) /\ d.del = "none"
-NoTasks(hs) == \A n \in hs : ~Replicates(Decide27(n, hs, {}, {}))
-u\* a check "replicates" when it hands the replicator a task with at least one candidate node. (With overlapping
-\* rules the code as found keeps calling the replicator with an EMPTY candidate list: a holder remembered from
-\* an earlier rule does not lower the shortage of a later rule - a phantom shortage that copies nothing.)
-Replicates(d) == \E k \in 1..Len(d.tasks) : Len(d.tasks[k].nodes) > 0
-Quiet(hs) == \A n \in hs : LET d == Decide27(n, hs, {}, {}) IN ~Replicates(d) /\ d.del = "none"
-NoTasks(hs) == \A n \in hs : ~Replicates(Decide27(n, hs, {}, {}))
-s\* a check "replicates" when it hands the replicator a task with at least one candidate node. (With overlapping
-\* rules the code as found keeps calling the replicator with an EMPTY candidate list: a holder remembered from
-\* an earlier rule does not lower the shortage of a later rule - a phantom shortage that copies nothing.)
-Replicates(d) == \E k \in 1..Len(d.tasks) : Len(d.tasks[k].nodes) > 0
-Quiet(hs) == \A n \in hs : LET d == Decide27(n, hs, {}, {}) IN ~Replicates(d) /\ d.del = "none"
-NoTasks(hs) == \A n \in hs : ~Replicates(Decide27(n, hs, {}, {}))
-t\* a check "replicates" when it hands the replicator a task with at least one candidate node. (With overlapping
-\* rules the code as found keeps calling the replicator with an EMPTY candidate list: a holder remembered from
-\* an earlier rule does not lower the shortage of a later rule - a phantom shortage that copies nothing.)
-Replicates(d) == \E k \in 1..Len(d.tasks) : Len(d.tasks[k].nodes) > 0
-Quiet(hs) == \A n \in hs : LET d == Decide27(n, hs, {}, {}) IN ~Replicates(d) /\ d.del = "none"
-NoTasks(hs) == \A n \in hs : ~Replicates(Decide27(n, hs, {}, {}))
-e\* a check "replicates" when it hands the replicator a task with at least one candidate node. (With overlapping
-\* rules the code as found keeps calling the replicator with an EMPTY candidate list: a holder remembered from
-\* an earlier rule does not lower the shortage of a later rule - a phantom shortage that copies nothing.)
-Replicates(d) == \E k \in 1..Len(d.tasks) : Len(d.tasks[k].nodes) > 0
-Quiet(hs) == \A n \in hs : LET d == Decide27(n, hs, {}, {}) IN ~Replicates(d) /\ d.del = "none"
-NoTasks(hs) == \A n \in hs : ~Replicates(Decide27(n, hs, {}, {}))
-r\* a check "replicates" when it hands the replicator a task with at least one candidate node. (With overlapping
-\* rules the code as found keeps calling the replicator with an EMPTY candidate list: a holder remembered from
-\* an earlier rule does not lower the shortage of a later rule - a phantom shortage that copies nothing.)
-Replicates(d) == \E k \in 1..Len(d.tasks) : Len(d.tasks[k].nodes) > 0
-Quiet(hs) == \A n \in hs : LET d == Decide27(n, hs, {}, {}) IN ~Replicates(d) /\ d.del = "none"
-NoTasks(hs) == \A n \in hs : ~Replicates(Decide27(n, hs, {}, {}))
-)\* a check "replicates" when it hands the replicator a task with at least one candidate node. (With overlapping
-\* rules the code as found keeps calling the replicator with an EMPTY candidate list: a holder remembered from
-\* an earlier rule does not lower the shortage of a later rule - a phantom shortage that copies nothing.)
-Replicates(d) == \E k \in 1..Len(d.tasks) : Len(d.tasks[k].nodes) > 0
-Quiet(hs) == \A n \in hs : LET d == Decide27(n, hs, {}, {}) IN ~Replicates(d) /\ d.del = "none"
-NoTasks(hs) == \A n \in hs : ~Replicates(Decide27(n, hs, {}, {}))
- \* a check "replicates" when it hands the replicator a task with at least one candidate node. (With overlapping
-\* rules the code as found keeps calling the replicator with an EMPTY candidate list: a holder remembered from
-\* an earlier rule does not lower the shortage of a later rule - a phantom shortage that copies nothing.)
-Replicates(d) == \E k \in 1..Len(d.tasks) : Len(d.tasks[k].nodes) > 0
-Quiet(hs) == \A n \in hs : LET d == Decide27(n, hs, {}, {}) IN ~Replicates(d) /\ d.del = "none"
-NoTasks(hs) == \A n \in hs : ~Replicates(Decide27(n, hs, {}, {}))
-\\* a check "replicates" when it hands the replicator a task with at least one candidate node. (With overlapping
-\* rules the code as found keeps calling the replicator with an EMPTY candidate list: a holder remembered from
-\* an earlier rule does not lower the shortage of a later rule - a phantom shortage that copies nothing.)
-Replicates(d) == \E k \in 1..Len(d.tasks) : Len(d.tasks[k].nodes) > 0
-Quiet(hs) == \A n \in hs : LET d == Decide27(n, hs, {}, {}) IN ~Replicates(d) /\ d.del = "none"
-NoTasks(hs) == \A n \in hs : ~Replicates(Decide27(n, hs, {}, {}))
- \* a check "replicates" when it hands the replicator a task with at least one candidate node. (With overlapping
-\* rules the code as found keeps calling the replicator with an EMPTY candidate list: a holder remembered from
-\* an earlier rule does not lower the shortage of a later rule - a phantom shortage that copies nothing.)
-Replicates(d) == \E k \in 1..Len(d.tasks) : Len(d.tasks[k].nodes) > 0
-Quiet(hs) == \A n \in hs : LET d == Decide27(n, hs, {}, {}) IN ~Replicates(d) /\ d.del = "none"
-NoTasks(hs) == \A n \in hs : ~Replicates(Decide27(n, hs, {}, {}))
-{\* a check "replicates" when it hands the replicator a task with at least one candidate node. (With overlapping
-\* rules the code as found keeps calling the replicator with an EMPTY candidate list: a holder remembered from
-\* an earlier rule does not lower the shortage of a later rule - a phantom shortage that copies nothing.)
-Replicates(d) == \E k \in 1..Len(d.tasks) : Len(d.tasks[k].nodes) > 0
-Quiet(hs) == \A n \in hs : LET d == Decide27(n, hs, {}, {}) IN ~Replicates(d) /\ d.del = "none"
-NoTasks(hs) == \A n \in hs : ~Replicates(Decide27(n, hs, {}, {}))
-{\* a check "replicates" when it hands the replicator a task with at least one candidate node. (With overlapping
-\* rules the code as found keeps calling the replicator with an EMPTY candidate list: a holder remembered from
-\* an earlier rule does not lower the shortage of a later rule - a phantom shortage that copies nothing.)
-Replicates(d) == \E k \in 1..Len(d.tasks) : Len(d.tasks[k].nodes) > 0
-Quiet(hs) == \A n \in hs : LET d == Decide27(n, hs, {}, {}) IN ~Replicates(d) /\ d.del = "none"
-NoTasks(hs) == \A n \in hs : ~Replicates(Decide27(n, hs, {}, {}))
-}\* a check "replicates" when it hands the replicator a task with at least one candidate node. (With overlapping
-\* rules the code as found keeps calling the replicator with an EMPTY candidate list: a holder remembered from
-\* an earlier rule does not lower the shortage of a later rule - a phantom shortage that copies nothing.)
-Replicates(d) == \E k \in 1..Len(d.tasks) : Len(d.tasks[k].nodes) > 0
-Quiet(hs) == \A n \in hs : LET d == Decide27(n, hs, {}, {}) IN ~Replicates(d) /\ d.del = "none"
-NoTasks(hs) == \A n \in hs : ~Replicates(Decide27(n, hs, {}, {}))
-}\* a check "replicates" when it hands the replicator a task with at least one candidate node. (With overlapping
-\* rules the code as found keeps calling the replicator with an EMPTY candidate list: a holder remembered from
-\* an earlier rule does not lower the shortage of a later rule - a phantom shortage that copies nothing.)
-Replicates(d) == \E k \in 1..Len(d.tasks) : Len(d.tasks[k].nodes) > 0
-Quiet(hs) == \A n \in hs : LET d == Decide27(n, hs, {}, {}) IN ~Replicates(d) /\ d.del = "none"
-NoTasks(hs) == \A n \in hs : ~Replicates(Decide27(n, hs, {}, {}))
-
-\* a check "replicates" when it hands the replicator a task with at least one candidate node. (With overlapping
-\* rules the code as found keeps calling the replicator with an EMPTY candidate list: a holder remembered from
-\* an earlier rule does not lower the shortage of a later rule - a phantom shortage that copies nothing.)
-Replicates(d) == \E k \in 1..Len(d.tasks) : Len(d.tasks[k].nodes) > 0
-Quiet(hs) == \A n \in hs : LET d == Decide27(n, hs, {}, {}) IN ~Replicates(d) /\ d.del = "none"
-NoTasks(hs) == \A n \in hs : ~Replicates(Decide27(n, hs, {}, {}))
- \* a check "replicates" when it hands the replicator a task with at least one candidate node. (With overlapping
-\* rules the code as found keeps calling the replicator with an EMPTY candidate list: a holder remembered from
-\* an earlier rule does not lower the shortage of a later rule - a phantom shortage that copies nothing.)
-Replicates(d) == \E k \in 1..Len(d.tasks) : Len(d.tasks[k].nodes) > 0
-Quiet(hs) == \A n \in hs : LET d == Decide27(n, hs, {}, {}) IN ~Replicates(d) /\ d.del = "none"
-NoTasks(hs) == \A n \in hs : ~Replicates(Decide27(n, hs, {}, {}))
- \* a check "replicates" when it hands the replicator a task with at least one candidate node. (With overlapping
-\* rules the code as found keeps calling the replicator with an EMPTY candidate list: a holder remembered from
-\* an earlier rule does not lower the shortage of a later rule - a phantom shortage that copies nothing.)
-Replicates(d) == \E k \in 1..Len(d.tasks) : Len(d.tasks[k].nodes) > 0
-Quiet(hs) == \A n \in hs : LET d == Decide27(n, hs, {}, {}) IN ~Replicates(d) /\ d.del = "none"
-NoTasks(hs) == \A n \in hs : ~Replicates(Decide27(n, hs, {}, {}))
- \* a check "replicates" when it hands the replicator a task with at least one candidate node. (With overlapping
-\* rules the code as found keeps calling the replicator with an EMPTY candidate list: a holder remembered from
-\* an earlier rule does not lower the shortage of a later rule - a phantom shortage that copies nothing.)
-Replicates(d) == \E k \in 1..Len(d.tasks) : Len(d.tasks[k].nodes) > 0
-Quiet(hs) == \A n \in hs : LET d == Decide27(n, hs, {}, {}) IN ~Replicates(d) /\ d.del = "none"
-NoTasks(hs) == \A n \in hs : ~Replicates(Decide27(n, hs, {}, {}))
- \* a check "replicates" when it hands the replicator a task with at least one candidate node. (With overlapping
-\* rules the code as found keeps calling the replicator with an EMPTY candidate list: a holder remembered from
-\* an earlier rule does not lower the shortage of a later rule - a phantom shortage that copies nothing.)
-Replicates(d) == \E k \in 1..Len(d.tasks) : Len(d.tasks[k].nodes) > 0
-Quiet(hs) == \A n \in hs : LET d == Decide27(n, hs, {}, {}) IN ~Replicates(d) /\ d.del = "none"
-NoTasks(hs) == \A n \in hs : ~Replicates(Decide27(n, hs, {}, {}))
- \* a check "replicates" when it hands the replicator a task with at least one candidate node. (With overlapping
-\* rules the code as found keeps calling the replicator with an EMPTY candidate list: a holder remembered from
-\* an earlier rule does not lower the shortage of a later rule - a phantom shortage that copies nothing.)
-Replicates(d) == \E k \in 1..Len(d.tasks) : Len(d.tasks[k].nodes) > 0
-Quiet(hs) == \A n \in hs : LET d == Decide27(n, hs, {}, {}) IN ~Replicates(d) /\ d.del = "none"
-NoTasks(hs) == \A n \in hs : ~Replicates(Decide27(n, hs, {}, {}))
- \* a check "replicates" when it hands the replicator a task with at least one candidate node. (With overlapping
-\* rules the code as found keeps calling the replicator with an EMPTY candidate list: a holder remembered from
-\* an earlier rule does not lower the shortage of a later rule - a phantom shortage that copies nothing.)
-Replicates(d) == \E k \in 1..Len(d.tasks) : Len(d.tasks[k].nodes) > 0
-Quiet(hs) == \A n \in hs : LET d == Decide27(n, hs, {}, {}) IN ~Replicates(d) /\ d.del = "none"
-NoTasks(hs) == \A n \in hs : ~Replicates(Decide27(n, hs, {}, {}))
- \* a check "replicates" when it hands the replicator a task with at least one candidate node. (With overlapping
-\* rules the code as found keeps calling the replicator with an EMPTY candidate list: a holder remembered from
-\* an earlier rule does not lower the shortage of a later rule - a phantom shortage that copies nothing.)
-Replicates(d) == \E k \in 1..Len(d.tasks) : Len(d.tasks[k].nodes) > 0
-Quiet(hs) == \A n \in hs : LET d == Decide27(n, hs, {}, {}) IN ~Replicates(d) /\ d.del = "none"
-NoTasks(hs) == \A n \in hs : ~Replicates(Decide27(n, hs, {}, {}))
- \* a check "replicates" when it hands the replicator a task with at least one candidate node. (With overlapping
-\* rules the code as found keeps calling the replicator with an EMPTY candidate list: a holder remembered from
-\* an earlier rule does not lower the shortage of a later rule - a phantom shortage that copies nothing.)
-Replicates(d) == \E k \in 1..Len(d.tasks) : Len(d.tasks[k].nodes) > 0
-Quiet(hs) == \A n \in hs : LET d == Decide27(n, hs, {}, {}) IN ~Replicates(d) /\ d.del = "none"
-NoTasks(hs) == \A n \in hs : ~Replicates(Decide27(n, hs, {}, {}))
- \* a check "replicates" when it hands the replicator a task with at least one candidate node. (With overlapping
-\* rules the code as found keeps calling the replicator with an EMPTY candidate list: a holder remembered from
-\* an earlier rule does not lower the shortage of a later rule - a phantom shortage that copies nothing.)
-Replicates(d) == \E k \in 1..Len(d.tasks) : Len(d.tasks[k].nodes) > 0
-Quiet(hs) == \A n \in hs : LET d == Decide27(n, hs, {}, {}) IN ~Replicates(d) /\ d.del = "none"
-NoTasks(hs) == \A n \in hs : ~Replicates(Decide27(n, hs, {}, {}))
-/\* a check "replicates" when it hands the replicator a task with at least one candidate node. (With overlapping
-\* rules the code as found keeps calling the replicator with an EMPTY candidate list: a holder remembered from
-\* an earlier rule does not lower the shortage of a later rule - a phantom shortage that copies nothing.)
-Replicates(d) == \E k \in 1..Len(d.tasks) : Len(d.tasks[k].nodes) > 0
-Quiet(hs) == \A n \in hs : LET d == Decide27(n, hs, {}, {}) IN ~Replicates(d) /\ d.del = "none"
-NoTasks(hs) == \A n \in hs : ~Replicates(Decide27(n, hs, {}, {}))
-\\* a check "replicates" when it hands the replicator a task with at least one candidate node. (With overlapping
-\* rules the code as found keeps calling the replicator with an EMPTY candidate list: a holder remembered from
-\* an earlier rule does not lower the shortage of a later rule - a phantom shortage that copies nothing.)
-Replicates(d) == \E k \in 1..Len(d.tasks) : Len(d.tasks[k].nodes) > 0
-Quiet(hs) == \A n \in hs : LET d == Decide27(n, hs, {}, {}) IN ~Replicates(d) /\ d.del = "none"
-NoTasks(hs) == \A n \in hs : ~Replicates(Decide27(n, hs, {}, {}))
- \* a check "replicates" when it hands the replicator a task with at least one candidate node. (With overlapping
-\* rules the code as found keeps calling the replicator with an EMPTY candidate list: a holder remembered from
-\* an earlier rule does not lower the shortage of a later rule - a phantom shortage that copies nothing.)
-Replicates(d) == \E k \in 1..Len(d.tasks) : Len(d.tasks[k].nodes) > 0
-Quiet(hs) == \A n \in hs : LET d == Decide27(n, hs, {}, {}) IN ~Replicates(d) /\ d.del = "none"
-NoTasks(hs) == \A n \in hs : ~Replicates(Decide27(n, hs, {}, {}))
-r\* a check "replicates" when it hands the replicator a task with at least one candidate node. (With overlapping
-\* rules the code as found keeps calling the replicator with an EMPTY candidate list: a holder remembered from
-\* an earlier rule does not lower the shortage of a later rule - a phantom shortage that copies nothing.)
-Replicates(d) == \E k \in 1..Len(d.tasks) : Len(d.tasks[k].nodes) > 0
-Quiet(hs) == \A n \in hs : LET d == Decide27(n, hs, {}, {}) IN ~Replicates(d) /\ d.del = "none"
-NoTasks(hs) == \A n \in hs : ~Replicates(Decide27(n, hs, {}, {}))
-a\* a check "replicates" when it hands the replicator a task with at least one candidate node. (With overlapping
-\* rules the code as found keeps calling the replicator with an EMPTY candidate list: a holder remembered from
-\* an earlier rule does not lower the shortage of a later rule - a phantom shortage that copies nothing.)
-Replicates(d) == \E k \in 1..Len(d.tasks) : Len(d.tasks[k].nodes) > 0
-Quiet(hs) == \A n \in hs : LET d == Decide27(n, hs, {}, {}) IN ~Replicates(d) /\ d.del = "none"
-NoTasks(hs) == \A n \in hs : ~Replicates(Decide27(n, hs, {}, {}))
-n\* a check "replicates" when it hands the replicator a task with at least one candidate node. (With overlapping
-\* rules the code as found keeps calling the replicator with an EMPTY candidate list: a holder remembered from
-\* an earlier rule does not lower the shortage of a later rule - a phantom shortage that copies nothing.)
-Replicates(d) == \E k \in 1..Len(d.tasks) : Len(d.tasks[k].nodes) > 0
-Quiet(hs) == \A n \in hs : LET d == Decide27(n, hs, {}, {}) IN ~Replicates(d) /\ d.del = "none"
-NoTasks(hs) == \A n \in hs : ~Replicates(Decide27(n, hs, {}, {}))
- \* a check "replicates" when it hands the replicator a task with at least one candidate node. (With overlapping
-\* rules the code as found keeps calling the replicator with an EMPTY candidate list: a holder remembered from
-\* an earlier rule does not lower the shortage of a later rule - a phantom shortage that copies nothing.)
-Replicates(d) == \E k \in 1..Len(d.tasks) : Len(d.tasks[k].nodes) > 0
-Quiet(hs) == \A n \in hs : LET d == Decide27(n, hs, {}, {}) IN ~Replicates(d) /\ d.del = "none"
-NoTasks(hs) == \A n \in hs : ~Replicates(Decide27(n, hs, {}, {}))
-=\* a check "replicates" when it hands the replicator a task with at least one candidate node. (With overlapping
-\* rules the code as found keeps calling the replicator with an EMPTY candidate list: a holder remembered from
-\* an earlier rule does not lower the shortage of a later rule - a phantom shortage that copies nothing.)
-Replicates(d) == \E k \in 1..Len(d.tasks) : Len(d.tasks[k].nodes) > 0
-Quiet(hs) == \A n \in hs : LET d == Decide27(n, hs, {}, {}) IN ~Replicates(d) /\ d.del = "none"
-NoTasks(hs) == \A n \in hs : ~Replicates(Decide27(n, hs, {}, {}))
- \* a check "replicates" when it hands the replicator a task with at least one candidate node. (With overlapping
-\* rules the code as found keeps calling the replicator with an EMPTY candidate list: a holder remembered from
-\* an earlier rule does not lower the shortage of a later rule - a phantom shortage that copies nothing.)
-Replicates(d) == \E k \in 1..Len(d.tasks) : Len(d.tasks[k].nodes) > 0
-Quiet(hs) == \A n \in hs : LET d == Decide27(n, hs, {}, {}) IN ~Replicates(d) /\ d.del = "none"
-NoTasks(hs) == \A n \in hs : ~Replicates(Decide27(n, hs, {}, {}))
-{\* a check "replicates" when it hands the replicator a task with at least one candidate node. (With overlapping
-\* rules the code as found keeps calling the replicator with an EMPTY candidate list: a holder remembered from
-\* an earlier rule does not lower the shortage of a later rule - a phantom shortage that copies nothing.)
-Replicates(d) == \E k \in 1..Len(d.tasks) : Len(d.tasks[k].nodes) > 0
-Quiet(hs) == \A n \in hs : LET d == Decide27(n, hs, {}, {}) IN ~Replicates(d) /\ d.del = "none"
-NoTasks(hs) == \A n \in hs : ~Replicates(Decide27(n, hs, {}, {}))
-}\* a check "replicates" when it hands the replicator a task with at least one candidate node. (With overlapping
-\* rules the code as found keeps calling the replicator with an EMPTY candidate list: a holder remembered from
-\* an earlier rule does not lower the shortage of a later rule - a phantom shortage that copies nothing.)
-Replicates(d) == \E k \in 1..Len(d.tasks) : Len(d.tasks[k].nodes) > 0
-Quiet(hs) == \A n \in hs : LET d == Decide27(n, hs, {}, {}) IN ~Replicates(d) /\ d.del = "none"
-NoTasks(hs) == \A n \in hs : ~Replicates(Decide27(n, hs, {}, {}))
- \* a check "replicates" when it hands the replicator a task with at least one candidate node. (With overlapping
-\* rules the code as found keeps calling the replicator with an EMPTY candidate list: a holder remembered from
-\* an earlier rule does not lower the shortage of a later rule - a phantom shortage that copies nothing.)
-Replicates(d) == \E k \in 1..Len(d.tasks) : Len(d.tasks[k].nodes) > 0
-Quiet(hs) == \A n \in hs : LET d == Decide27(n, hs, {}, {}) IN ~Replicates(d) /\ d.del = "none"
-NoTasks(hs) == \A n \in hs : ~Replicates(Decide27(n, hs, {}, {}))
-/\* a check "replicates" when it hands the replicator a task with at least one candidate node. (With overlapping
-\* rules the code as found keeps calling the replicator with an EMPTY candidate list: a holder remembered from
-\* an earlier rule does not lower the shortage of a later rule - a phantom shortage that copies nothing.)
-Replicates(d) == \E k \in 1..Len(d.tasks) : Len(d.tasks[k].nodes) > 0
-Quiet(hs) == \A n \in hs : LET d == Decide27(n, hs, {}, {}) IN ~Replicates(d) /\ d.del = "none"
-NoTasks(hs) == \A n \in hs : ~Replicates(Decide27(n, hs, {}, {}))
-\\* a check "replicates" when it hands the replicator a task with at least one candidate node. (With overlapping
-\* rules the code as found keeps calling the replicator with an EMPTY candidate list: a holder remembered from
-\* an earlier rule does not lower the shortage of a later rule - a phantom shortage that copies nothing.)
-Replicates(d) == \E k \in 1..Len(d.tasks) : Len(d.tasks[k].nodes) > 0
-Quiet(hs) == \A n \in hs : LET d == Decide27(n, hs, {}, {}) IN ~Replicates(d) /\ d.del = "none"
-NoTasks(hs) == \A n \in hs : ~Replicates(Decide27(n, hs, {}, {}))
- \* a check "replicates" when it hands the replicator a task with at least one candidate node. (With overlapping
-\* rules the code as found keeps calling the replicator with an EMPTY candidate list: a holder remembered from
-\* an earlier rule does not lower the shortage of a later rule - a phantom shortage that copies nothing.)
-Replicates(d) == \E k \in 1..Len(d.tasks) : Len(d.tasks[k].nodes) > 0
-Quiet(hs) == \A n \in hs : LET d == Decide27(n, hs, {}, {}) IN ~Replicates(d) /\ d.del = "none"
-NoTasks(hs) == \A n \in hs : ~Replicates(Decide27(n, hs, {}, {}))
-r\* a check "replicates" when it hands the replicator a task with at least one candidate node. (With overlapping
-\* rules the code as found keeps calling the replicator with an EMPTY candidate list: a holder remembered from
-\* an earlier rule does not lower the shortage of a later rule - a phantom shortage that copies nothing.)
-Replicates(d) == \E k \in 1..Len(d.tasks) : Len(d.tasks[k].nodes) > 0
-Quiet(hs) == \A n \in hs : LET d == Decide27(n, hs, {}, {}) IN ~Replicates(d) /\ d.del = "none"
-NoTasks(hs) == \A n \in hs : ~Replicates(Decide27(n, hs, {}, {}))
-o\* a check "replicates" when it hands the replicator a task with at least one candidate node. (With overlapping
-\* rules the code as found keeps calling the replicator with an EMPTY candidate list: a holder remembered from
-\* an earlier rule does not lower the shortage of a later rule - a phantom shortage that copies nothing.)
-Replicates(d) == \E k \in 1..Len(d.tasks) : Len(d.tasks[k].nodes) > 0
-Quiet(hs) == \A n \in hs : LET d == Decide27(n, hs, {}, {}) IN ~Replicates(d) /\ d.del = "none"
-NoTasks(hs) == \A n \in hs : ~Replicates(Decide27(n, hs, {}, {}))
-u\* a check "replicates" when it hands the replicator a task with at least one candidate node. (With overlapping
-\* rules the code as found keeps calling the replicator with an EMPTY candidate list: a holder remembered from
-\* an earlier rule does not lower the shortage of a later rule - a phantom shortage that copies nothing.)
-Replicates(d) == \E k \in 1..Len(d.tasks) : Len(d.tasks[k].nodes) > 0
-Quiet(hs) == \A n \in hs : LET d == Decide27(n, hs, {}, {}) IN ~Replicates(d) /\ d.del = "none"
-NoTasks(hs) == \A n \in hs : ~Replicates(Decide27(n, hs, {}, {}))
-n\* a check "replicates" when it hands the replicator a task with at least one candidate node. (With overlapping
-\* rules the code as found keeps calling the replicator with an EMPTY candidate list: a holder remembered from
-\* an earlier rule does not lower the shortage of a later rule - a phantom shortage that copies nothing.)
-Replicates(d) == \E k \in 1..Len(d.tasks) : Len(d.tasks[k].nodes) > 0
-Quiet(hs) == \A n \in hs : LET d == Decide27(n, hs, {}, {}) IN ~Replicates(d) /\ d.del = "none"
-NoTasks(hs) == \A n \in hs : ~Replicates(Decide27(n, hs, {}, {}))
-d\* a check "replicates" when it hands the replicator a task with at least one candidate node. (With overlapping
-\* rules the code as found keeps calling the replicator with an EMPTY candidate list: a holder remembered from
-\* an earlier rule does not lower the shortage of a later rule - a phantom shortage that copies nothing.)
-Replicates(d) == \E k \in 1..Len(d.tasks) : Len(d.tasks[k].nodes) > 0
-Quiet(hs) == \A n \in hs : LET d == Decide27(n, hs, {}, {}) IN ~Replicates(d) /\ d.del = "none"
-NoTasks(hs) == \A n \in hs : ~Replicates(Decide27(n, hs, {}, {}))
- \* a check "replicates" when it hands the replicator a task with at least one candidate node. (With overlapping
-\* rules the code as found keeps calling the replicator with an EMPTY candidate list: a holder remembered from
-\* an earlier rule does not lower the shortage of a later rule - a phantom shortage that copies nothing.)
-Replicates(d) == \E k \in 1..Len(d.tasks) : Len(d.tasks[k].nodes) > 0
-Quiet(hs) == \A n \in hs : LET d == Decide27(n, hs, {}, {}) IN ~Replicates(d) /\ d.del = "none"
-NoTasks(hs) == \A n \in hs : ~Replicates(Decide27(n, hs, {}, {}))
-=\* a check "replicates" when it hands the replicator a task with at least one candidate node. (With overlapping
-\* rules the code as found keeps calling the replicator with an EMPTY candidate list: a holder remembered from
-\* an earlier rule does not lower the shortage of a later rule - a phantom shortage that copies nothing.)
-Replicates(d) == \E k \in 1..Len(d.tasks) : Len(d.tasks[k].nodes) > 0
-Quiet(hs) == \A n \in hs : LET d == Decide27(n, hs, {}, {}) IN ~Replicates(d) /\ d.del = "none"
-NoTasks(hs) == \A n \in hs : ~Replicates(Decide27(n, hs, {}, {}))
- \* a check "replicates" when it hands the replicator a task with at least one candidate node. (With overlapping
-\* rules the code as found keeps calling the replicator with an EMPTY candidate list: a holder remembered from
-\* an earlier rule does not lower the shortage of a later rule - a phantom shortage that copies nothing.)
-Replicates(d) == \E k \in 1..Len(d.tasks) : Len(d.tasks[k].nodes) > 0
-Quiet(hs) == \A n \in hs : LET d == Decide27(n, hs, {}, {}) IN ~Replicates(d) /\ d.del = "none"
-NoTasks(hs) == \A n \in hs : ~Replicates(Decide27(n, hs, {}, {}))
-0\* a check "replicates" when it hands the replicator a task with at least one candidate node. (With overlapping
-\* rules the code as found keeps calling the replicator with an EMPTY candidate list: a holder remembered from
-\* an earlier rule does not lower the shortage of a later rule - a phantom shortage that copies nothing.)
-Replicates(d) == \E k \in 1..Len(d.tasks) : Len(d.tasks[k].nodes) > 0
-Quiet(hs) == \A n \in hs : LET d == Decide27(n, hs, {}, {}) IN ~Replicates(d) /\ d.del = "none"
-NoTasks(hs) == \A n \in hs : ~Replicates(Decide27(n, hs, {}, {}))
- \* a check "replicates" when it hands the replicator a task with at least one candidate node. (With overlapping
-\* rules the code as found keeps calling the replicator with an EMPTY candidate list: a holder remembered from
-\* an earlier rule does not lower the shortage of a later rule - a phantom shortage that copies nothing.)
-Replicates(d) == \E k \in 1..Len(d.tasks) : Len(d.tasks[k].nodes) > 0
-Quiet(hs) == \A n \in hs : LET d == Decide27(n, hs, {}, {}) IN ~Replicates(d) /\ d.del = "none"
-NoTasks(hs) == \A n \in hs : ~Replicates(Decide27(n, hs, {}, {}))
-/\* a check "replicates" when it hands the replicator a task with at least one candidate node. (With overlapping
-\* rules the code as found keeps calling the replicator with an EMPTY candidate list: a holder remembered from
-\* an earlier rule does not lower the shortage of a later rule - a phantom shortage that copies nothing.)
-Replicates(d) == \E k \in 1..Len(d.tasks) : Len(d.tasks[k].nodes) > 0
-Quiet(hs) == \A n \in hs : LET d == Decide27(n, hs, {}, {}) IN ~Replicates(d) /\ d.del = "none"
-NoTasks(hs) == \A n \in hs : ~Replicates(Decide27(n, hs, {}, {}))
-\\* a check "replicates" when it hands the replicator a task with at least one candidate node. (With overlapping
-\* rules the code as found keeps calling the replicator with an EMPTY candidate list: a holder remembered from
-\* an earlier rule does not lower the shortage of a later rule - a phantom shortage that copies nothing.)
-Replicates(d) == \E k \in 1..Len(d.tasks) : Len(d.tasks[k].nodes) > 0
-Quiet(hs) == \A n \in hs : LET d == Decide27(n, hs, {}, {}) IN ~Replicates(d) /\ d.del = "none"
-NoTasks(hs) == \A n \in hs : ~Replicates(Decide27(n, hs, {}, {}))
- \* a check "replicates" when it hands the replicator a task with at least one candidate node. (With overlapping
-\* rules the code as found keeps calling the replicator with an EMPTY candidate list: a holder remembered from
-\* an earlier rule does not lower the shortage of a later rule - a phantom shortage that copies nothing.)
-Replicates(d) == \E k \in 1..Len(d.tasks) : Len(d.tasks[k].nodes) > 0
-Quiet(hs) == \A n \in hs : LET d == Decide27(n, hs, {}, {}) IN ~Replicates(d) /\ d.del = "none"
-NoTasks(hs) == \A n \in hs : ~Replicates(Decide27(n, hs, {}, {}))
-l\* a check "replicates" when it hands the replicator a task with at least one candidate node. (With overlapping
-\* rules the code as found keeps calling the replicator with an EMPTY candidate list: a holder remembered from
-\* an earlier rule does not lower the shortage of a later rule - a phantom shortage that copies nothing.)
-Replicates(d) == \E k \in 1..Len(d.tasks) : Len(d.tasks[k].nodes) > 0
-Quiet(hs) == \A n \in hs : LET d == Decide27(n, hs, {}, {}) IN ~Replicates(d) /\ d.del = "none"
-NoTasks(hs) == \A n \in hs : ~Replicates(Decide27(n, hs, {}, {}))
-a\* a check "replicates" when it hands the replicator a task with at least one candidate node. (With overlapping
-\* rules the code as found keeps calling the replicator with an EMPTY candidate list: a holder remembered from
-\* an earlier rule does not lower the shortage of a later rule - a phantom shortage that copies nothing.)
-Replicates(d) == \E k \in 1..Len(d.tasks) : Len(d.tasks[k].nodes) > 0
-Quiet(hs) == \A n \in hs : LET d == Decide27(n, hs, {}, {}) IN ~Replicates(d) /\ d.del = "none"
-NoTasks(hs) == \A n \in hs : ~Replicates(Decide27(n, hs, {}, {}))
-s\* a check "replicates" when it hands the replicator a task with at least one candidate node. (With overlapping
-\* rules the code as found keeps calling the replicator with an EMPTY candidate list: a holder remembered from
-\* an earlier rule does not lower the shortage of a later rule - a phantom shortage that copies nothing.)
-Replicates(d) == \E k \in 1..Len(d.tasks) : Len(d.tasks[k].nodes) > 0
-Quiet(hs) == \A n \in hs : LET d == Decide27(n, hs, {}, {}) IN ~Replicates(d) /\ d.del = "none"
-NoTasks(hs) == \A n \in hs : ~Replicates(Decide27(n, hs, {}, {}))
-t\* a check "replicates" when it hands the replicator a task with at least one candidate node. (With overlapping
-\* rules the code as found keeps calling the replicator with an EMPTY candidate list: a holder remembered from
-\* an earlier rule does not lower the shortage of a later rule - a phantom shortage that copies nothing.)
-Replicates(d) == \E k \in 1..Len(d.tasks) : Len(d.tasks[k].nodes) > 0
-Quiet(hs) == \A n \in hs : LET d == Decide27(n, hs, {}, {}) IN ~Replicates(d) /\ d.del = "none"
-NoTasks(hs) == \A n \in hs : ~Replicates(Decide27(n, hs, {}, {}))
- \* a check "replicates" when it hands the replicator a task with at least one candidate node. (With overlapping
-\* rules the code as found keeps calling the replicator with an EMPTY candidate list: a holder remembered from
-\* an earlier rule does not lower the shortage of a later rule - a phantom shortage that copies nothing.)
-Replicates(d) == \E k \in 1..Len(d.tasks) : Len(d.tasks[k].nodes) > 0
-Quiet(hs) == \A n \in hs : LET d == Decide27(n, hs, {}, {}) IN ~Replicates(d) /\ d.del = "none"
-NoTasks(hs) == \A n \in hs : ~Replicates(Decide27(n, hs, {}, {}))
-=\* a check "replicates" when it hands the replicator a task with at least one candidate node. (With overlapping
-\* rules the code as found keeps calling the replicator with an EMPTY candidate list: a holder remembered from
-\* an earlier rule does not lower the shortage of a later rule - a phantom shortage that copies nothing.)
-Replicates(d) == \E k \in 1..Len(d.tasks) : Len(d.tasks[k].nodes) > 0
-Quiet(hs) == \A n \in hs : LET d == Decide27(n, hs, {}, {}) IN ~Replicates(d) /\ d.del = "none"
-NoTasks(hs) == \A n \in hs : ~Replicates(Decide27(n, hs, {}, {}))
- \* a check "replicates" when it hands the replicator a task with at least one candidate node. (With overlapping
-\* rules the code as found keeps calling the replicator with an EMPTY candidate list: a holder remembered from
-\* an earlier rule does not lower the shortage of a later rule - a phantom shortage that copies nothing.)
-Replicates(d) == \E k \in 1..Len(d.tasks) : Len(d.tasks[k].nodes) > 0
-Quiet(hs) == \A n \in hs : LET d == Decide27(n, hs, {}, {}) IN ~Replicates(d) /\ d.del = "none"
-NoTasks(hs) == \A n \in hs : ~Replicates(Decide27(n, hs, {}, {}))
-N\* a check "replicates" when it hands the replicator a task with at least one candidate node. (With overlapping
-\* rules the code as found keeps calling the replicator with an EMPTY candidate list: a holder remembered from
-\* an earlier rule does not lower the shortage of a later rule - a phantom shortage that copies nothing.)
-Replicates(d) == \E k \in 1..Len(d.tasks) : Len(d.tasks[k].nodes) > 0
-Quiet(hs) == \A n \in hs : LET d == Decide27(n, hs, {}, {}) IN ~Replicates(d) /\ d.del = "none"
-NoTasks(hs) == \A n \in hs : ~Replicates(Decide27(n, hs, {}, {}))
-o\* a check "replicates" when it hands the replicator a task with at least one candidate node. (With overlapping
-\* rules the code as found keeps calling the replicator with an EMPTY candidate list: a holder remembered from
-\* an earlier rule does not lower the shortage of a later rule - a phantom shortage that copies nothing.)
-Replicates(d) == \E k \in 1..Len(d.tasks) : Len(d.tasks[k].nodes) > 0
-Quiet(hs) == \A n \in hs : LET d == Decide27(n, hs, {}, {}) IN ~Replicates(d) /\ d.del = "none"
-NoTasks(hs) == \A n \in hs : ~Replicates(Decide27(n, hs, {}, {}))
-L\* a check "replicates" when it hands the replicator a task with at least one candidate node. (With overlapping
-\* rules the code as found keeps calling the replicator with an EMPTY candidate list: a holder remembered from
-\* an earlier rule does not lower the shortage of a later rule - a phantom shortage that copies nothing.)
-Replicates(d) == \E k \in 1..Len(d.tasks) : Len(d.tasks[k].nodes) > 0
-Quiet(hs) == \A n \in hs : LET d == Decide27(n, hs, {}, {}) IN ~Replicates(d) /\ d.del = "none"
-NoTasks(hs) == \A n \in hs : ~Replicates(Decide27(n, hs, {}, {}))
-a\* a check "replicates" when it hands the replicator a task with at least one candidate node. (With overlapping
-\* rules the code as found keeps calling the replicator with an EMPTY candidate list: a holder remembered from
-\* an earlier rule does not lower the shortage of a later rule - a phantom shortage that copies nothing.)
-Replicates(d) == \E k \in 1..Len(d.tasks) : Len(d.tasks[k].nodes) > 0
-Quiet(hs) == \A n \in hs : LET d == Decide27(n, hs, {}, {}) IN ~Replicates(d) /\ d.del = "none"
-NoTasks(hs) == \A n \in hs : ~Replicates(Decide27(n, hs, {}, {}))
-s\* a check "replicates" when it hands the replicator a task with at least one candidate node. (With overlapping
-\* rules the code as found keeps calling the replicator with an EMPTY candidate list: a holder remembered from
-\* an earlier rule does not lower the shortage of a later rule - a phantom shortage that copies nothing.)
-Replicates(d) == \E k \in 1..Len(d.tasks) : Len(d.tasks[k].nodes) > 0
-Quiet(hs) == \A n \in hs : LET d == Decide27(n, hs, {}, {}) IN ~Replicates(d) /\ d.del = "none"
-NoTasks(hs) == \A n \in hs : ~Replicates(Decide27(n, hs, {}, {}))
-t\* a check "replicates" when it hands the replicator a task with at least one candidate node. (With overlapping
-\* rules the code as found keeps calling the replicator with an EMPTY candidate list: a holder remembered from
-\* an earlier rule does not lower the shortage of a later rule - a phantom shortage that copies nothing.)
-Replicates(d) == \E k \in 1..Len(d.tasks) : Len(d.tasks[k].nodes) > 0
-Quiet(hs) == \A n \in hs : LET d == Decide27(n, hs, {}, {}) IN ~Replicates(d) /\ d.del = "none"
-NoTasks(hs) == \A n \in hs : ~Replicates(Decide27(n, hs, {}, {}))
-
-\* a check "replicates" when it hands the replicator a task with at least one candidate node. (With overlapping
-\* rules the code as found keeps calling the replicator with an EMPTY candidate list: a holder remembered from
-\* an earlier rule does not lower the shortage of a later rule - a phantom shortage that copies nothing.)
-Replicates(d) == \E k \in 1..Len(d.tasks) : Len(d.tasks[k].nodes) > 0
-Quiet(hs) == \A n \in hs : LET d == Decide27(n, hs, {}, {}) IN ~Replicates(d) /\ d.del = "none"
-NoTasks(hs) == \A n \in hs : ~Replicates(Decide27(n, hs, {}, {}))
- \* a check "replicates" when it hands the replicator a task with at least one candidate node. (With overlapping
-\* rules the code as found keeps calling the replicator with an EMPTY candidate list: a holder remembered from
-\* an earlier rule does not lower the shortage of a later rule - a phantom shortage that copies nothing.)
-Replicates(d) == \E k \in 1..Len(d.tasks) : Len(d.tasks[k].nodes) > 0
-Quiet(hs) == \A n \in hs : LET d == Decide27(n, hs, {}, {}) IN ~Replicates(d) /\ d.del = "none"
-NoTasks(hs) == \A n \in hs : ~Replicates(Decide27(n, hs, {}, {}))
- \* a check "replicates" when it hands the replicator a task with at least one candidate node. (With overlapping
-\* rules the code as found keeps calling the replicator with an EMPTY candidate list: a holder remembered from
-\* an earlier rule does not lower the shortage of a later rule - a phantom shortage that copies nothing.)
-Replicates(d) == \E k \in 1..Len(d.tasks) : Len(d.tasks[k].nodes) > 0
-Quiet(hs) == \A n \in hs : LET d == Decide27(n, hs, {}, {}) IN ~Replicates(d) /\ d.del = "none"
-NoTasks(hs) == \A n \in hs : ~Replicates(Decide27(n, hs, {}, {}))
- \* a check "replicates" when it hands the replicator a task with at least one candidate node. (With overlapping
-\* rules the code as found keeps calling the replicator with an EMPTY candidate list: a holder remembered from
-\* an earlier rule does not lower the shortage of a later rule - a phantom shortage that copies nothing.)
-Replicates(d) == \E k \in 1..Len(d.tasks) : Len(d.tasks[k].nodes) > 0
-Quiet(hs) == \A n \in hs : LET d == Decide27(n, hs, {}, {}) IN ~Replicates(d) /\ d.del = "none"
-NoTasks(hs) == \A n \in hs : ~Replicates(Decide27(n, hs, {}, {}))
- \* a check "replicates" when it hands the replicator a task with at least one candidate node. (With overlapping
-\* rules the code as found keeps calling the replicator with an EMPTY candidate list: a holder remembered from
-\* an earlier rule does not lower the shortage of a later rule - a phantom shortage that copies nothing.)
-Replicates(d) == \E k \in 1..Len(d.tasks) : Len(d.tasks[k].nodes) > 0
-Quiet(hs) == \A n \in hs : LET d == Decide27(n, hs, {}, {}) IN ~Replicates(d) /\ d.del = "none"
-NoTasks(hs) == \A n \in hs : ~Replicates(Decide27(n, hs, {}, {}))
- \* a check "replicates" when it hands the replicator a task with at least one candidate node. (With overlapping
-\* rules the code as found keeps calling the replicator with an EMPTY candidate list: a holder remembered from
-\* an earlier rule does not lower the shortage of a later rule - a phantom shortage that copies nothing.)
-Replicates(d) == \E k \in 1..Len(d.tasks) : Len(d.tasks[k].nodes) > 0
-Quiet(hs) == \A n \in hs : LET d == Decide27(n, hs, {}, {}) IN ~Replicates(d) /\ d.del = "none"
-NoTasks(hs) == \A n \in hs : ~Replicates(Decide27(n, hs, {}, {}))
- \* a check "replicates" when it hands the replicator a task with at least one candidate node. (With overlapping
-\* rules the code as found keeps calling the replicator with an EMPTY candidate list: a holder remembered from
-\* an earlier rule does not lower the shortage of a later rule - a phantom shortage that copies nothing.)
-Replicates(d) == \E k \in 1..Len(d.tasks) : Len(d.tasks[k].nodes) > 0
-Quiet(hs) == \A n \in hs : LET d == Decide27(n, hs, {}, {}) IN ~Replicates(d) /\ d.del = "none"
-NoTasks(hs) == \A n \in hs : ~Replicates(Decide27(n, hs, {}, {}))
- \* a check "replicates" when it hands the replicator a task with at least one candidate node. (With overlapping
-\* rules the code as found keeps calling the replicator with an EMPTY candidate list: a holder remembered from
-\* an earlier rule does not lower the shortage of a later rule - a phantom shortage that copies nothing.)
-Replicates(d) == \E k \in 1..Len(d.tasks) : Len(d.tasks[k].nodes) > 0
-Quiet(hs) == \A n \in hs : LET d == Decide27(n, hs, {}, {}) IN ~Replicates(d) /\ d.del = "none"
-NoTasks(hs) == \A n \in hs : ~Replicates(Decide27(n, hs, {}, {}))
- \* a check "replicates" when it hands the replicator a task with at least one candidate node. (With overlapping
-\* rules the code as found keeps calling the replicator with an EMPTY candidate list: a holder remembered from
-\* an earlier rule does not lower the shortage of a later rule - a phantom shortage that copies nothing.)
-Replicates(d) == \E k \in 1..Len(d.tasks) : Len(d.tasks[k].nodes) > 0
-Quiet(hs) == \A n \in hs : LET d == Decide27(n, hs, {}, {}) IN ~Replicates(d) /\ d.del = "none"
-NoTasks(hs) == \A n \in hs : ~Replicates(Decide27(n, hs, {}, {}))
- \* a check "replicates" when it hands the replicator a task with at least one candidate node. (With overlapping
-\* rules the code as found keeps calling the replicator with an EMPTY candidate list: a holder remembered from
-\* an earlier rule does not lower the shortage of a later rule - a phantom shortage that copies nothing.)
-Replicates(d) == \E k \in 1..Len(d.tasks) : Len(d.tasks[k].nodes) > 0
-Quiet(hs) == \A n \in hs : LET d == Decide27(n, hs, {}, {}) IN ~Replicates(d) /\ d.del = "none"
-NoTasks(hs) == \A n \in hs : ~Replicates(Decide27(n, hs, {}, {}))
-/\* a check "replicates" when it hands the replicator a task with at least one candidate node. (With overlapping
-\* rules the code as found keeps calling the replicator with an EMPTY candidate list: a holder remembered from
-\* an earlier rule does not lower the shortage of a later rule - a phantom shortage that copies nothing.)
-Replicates(d) == \E k \in 1..Len(d.tasks) : Len(d.tasks[k].nodes) > 0
-Quiet(hs) == \A n \in hs : LET d == Decide27(n, hs, {}, {}) IN ~Replicates(d) /\ d.del = "none"
-NoTasks(hs) == \A n \in hs : ~Replicates(Decide27(n, hs, {}, {}))
-\\* a check "replicates" when it hands the replicator a task with at least one candidate node. (With overlapping
-\* rules the code as found keeps calling the replicator with an EMPTY candidate list: a holder remembered from
-\* an earlier rule does not lower the shortage of a later rule - a phantom shortage that copies nothing.)
-Replicates(d) == \E k \in 1..Len(d.tasks) : Len(d.tasks[k].nodes) > 0
-Quiet(hs) == \A n \in hs : LET d == Decide27(n, hs, {}, {}) IN ~Replicates(d) /\ d.del = "none"
-NoTasks(hs) == \A n \in hs : ~Replicates(Decide27(n, hs, {}, {}))
- \* a check "replicates" when it hands the replicator a task with at least one candidate node. (With overlapping
-\* rules the code as found keeps calling the replicator with an EMPTY candidate list: a holder remembered from
-\* an earlier rule does not lower the shortage of a later rule - a phantom shortage that copies nothing.)
-Replicates(d) == \E k \in 1..Len(d.tasks) : Len(d.tasks[k].nodes) > 0
-Quiet(hs) == \A n \in hs : LET d == Decide27(n, hs, {}, {}) IN ~Replicates(d) /\ d.del = "none"
-NoTasks(hs) == \A n \in hs : ~Replicates(Decide27(n, hs, {}, {}))
-s\* a check "replicates" when it hands the replicator a task with at least one candidate node. (With overlapping
-\* rules the code as found keeps calling the replicator with an EMPTY candidate list: a holder remembered from
-\* an earlier rule does not lower the shortage of a later rule - a phantom shortage that copies nothing.)
-Replicates(d) == \E k \in 1..Len(d.tasks) : Len(d.tasks[k].nodes) > 0
-Quiet(hs) == \A n \in hs : LET d == Decide27(n, hs, {}, {}) IN ~Replicates(d) /\ d.del = "none"
-NoTasks(hs) == \A n \in hs : ~Replicates(Decide27(n, hs, {}, {}))
- \* a check "replicates" when it hands the replicator a task with at least one candidate node. (With overlapping
-\* rules the code as found keeps calling the replicator with an EMPTY candidate list: a holder remembered from
-\* an earlier rule does not lower the shortage of a later rule - a phantom shortage that copies nothing.)
-Replicates(d) == \E k \in 1..Len(d.tasks) : Len(d.tasks[k].nodes) > 0
-Quiet(hs) == \A n \in hs : LET d == Decide27(n, hs, {}, {}) IN ~Replicates(d) /\ d.del = "none"
-NoTasks(hs) == \A n \in hs : ~Replicates(Decide27(n, hs, {}, {}))
-=\* a check "replicates" when it hands the replicator a task with at least one candidate node. (With overlapping
-\* rules the code as found keeps calling the replicator with an EMPTY candidate list: a holder remembered from
-\* an earlier rule does not lower the shortage of a later rule - a phantom shortage that copies nothing.)
-Replicates(d) == \E k \in 1..Len(d.tasks) : Len(d.tasks[k].nodes) > 0
-Quiet(hs) == \A n \in hs : LET d == Decide27(n, hs, {}, {}) IN ~Replicates(d) /\ d.del = "none"
-NoTasks(hs) == \A n \in hs : ~Replicates(Decide27(n, hs, {}, {}))
- \* a check "replicates" when it hands the replicator a task with at least one candidate node. (With overlapping
-\* rules the code as found keeps calling the replicator with an EMPTY candidate list: a holder remembered from
-\* an earlier rule does not lower the shortage of a later rule - a phantom shortage that copies nothing.)
-Replicates(d) == \E k \in 1..Len(d.tasks) : Len(d.tasks[k].nodes) > 0
-Quiet(hs) == \A n \in hs : LET d == Decide27(n, hs, {}, {}) IN ~Replicates(d) /\ d.del = "none"
-NoTasks(hs) == \A n \in hs : ~Replicates(Decide27(n, hs, {}, {}))
-0\* a check "replicates" when it hands the replicator a task with at least one candidate node. (With overlapping
-\* rules the code as found keeps calling the replicator with an EMPTY candidate list: a holder remembered from
-\* an earlier rule does not lower the shortage of a later rule - a phantom shortage that copies nothing.)
-Replicates(d) == \E k \in 1..Len(d.tasks) : Len(d.tasks[k].nodes) > 0
-Quiet(hs) == \A n \in hs : LET d == Decide27(n, hs, {}, {}) IN ~Replicates(d) /\ d.del = "none"
-NoTasks(hs) == \A n \in hs : ~Replicates(Decide27(n, hs, {}, {}))
- \* a check "replicates" when it hands the replicator a task with at least one candidate node. (With overlapping
-\* rules the code as found keeps calling the replicator with an EMPTY candidate list: a holder remembered from
-\* an earlier rule does not lower the shortage of a later rule - a phantom shortage that copies nothing.)
-Replicates(d) == \E k \in 1..Len(d.tasks) : Len(d.tasks[k].nodes) > 0
-Quiet(hs) == \A n \in hs : LET d == Decide27(n, hs, {}, {}) IN ~Replicates(d) /\ d.del = "none"
-NoTasks(hs) == \A n \in hs : ~Replicates(Decide27(n, hs, {}, {}))
-/\* a check "replicates" when it hands the replicator a task with at least one candidate node. (With overlapping
-\* rules the code as found keeps calling the replicator with an EMPTY candidate list: a holder remembered from
-\* an earlier rule does not lower the shortage of a later rule - a phantom shortage that copies nothing.)
-Replicates(d) == \E k \in 1..Len(d.tasks) : Len(d.tasks[k].nodes) > 0
-Quiet(hs) == \A n \in hs : LET d == Decide27(n, hs, {}, {}) IN ~Replicates(d) /\ d.del = "none"
-NoTasks(hs) == \A n \in hs : ~Replicates(Decide27(n, hs, {}, {}))
-\\* a check "replicates" when it hands the replicator a task with at least one candidate node. (With overlapping
-\* rules the code as found keeps calling the replicator with an EMPTY candidate list: a holder remembered from
-\* an earlier rule does not lower the shortage of a later rule - a phantom shortage that copies nothing.)
-Replicates(d) == \E k \in 1..Len(d.tasks) : Len(d.tasks[k].nodes) > 0
-Quiet(hs) == \A n \in hs : LET d == Decide27(n, hs, {}, {}) IN ~Replicates(d) /\ d.del = "none"
-NoTasks(hs) == \A n \in hs : ~Replicates(Decide27(n, hs, {}, {}))
- \* a check "replicates" when it hands the replicator a task with at least one candidate node. (With overlapping
-\* rules the code as found keeps calling the replicator with an EMPTY candidate list: a holder remembered from
-\* an earlier rule does not lower the shortage of a later rule - a phantom shortage that copies nothing.)
-Replicates(d) == \E k \in 1..Len(d.tasks) : Len(d.tasks[k].nodes) > 0
-Quiet(hs) == \A n \in hs : LET d == Decide27(n, hs, {}, {}) IN ~Replicates(d) /\ d.del = "none"
-NoTasks(hs) == \A n \in hs : ~Replicates(Decide27(n, hs, {}, {}))
-p\* a check "replicates" when it hands the replicator a task with at least one candidate node. (With overlapping
-\* rules the code as found keeps calling the replicator with an EMPTY candidate list: a holder remembered from
-\* an earlier rule does not lower the shortage of a later rule - a phantom shortage that copies nothing.)
-Replicates(d) == \E k \in 1..Len(d.tasks) : Len(d.tasks[k].nodes) > 0
-Quiet(hs) == \A n \in hs : LET d == Decide27(n, hs, {}, {}) IN ~Replicates(d) /\ d.del = "none"
-NoTasks(hs) == \A n \in hs : ~Replicates(Decide27(n, hs, {}, {}))
-c\* a check "replicates" when it hands the replicator a task with at least one candidate node. (With overlapping
-\* rules the code as found keeps calling the replicator with an EMPTY candidate list: a holder remembered from
-\* an earlier rule does not lower the shortage of a later rule - a phantom shortage that copies nothing.)
-Replicates(d) == \E k \in 1..Len(d.tasks) : Len(d.tasks[k].nodes) > 0
-Quiet(hs) == \A n \in hs : LET d == Decide27(n, hs, {}, {}) IN ~Replicates(d) /\ d.del = "none"
-NoTasks(hs) == \A n \in hs : ~Replicates(Decide27(n, hs, {}, {}))
- \* a check "replicates" when it hands the replicator a task with at least one candidate node. (With overlapping
-\* rules the code as found keeps calling the replicator with an EMPTY candidate list: a holder remembered from
-\* an earlier rule does not lower the shortage of a later rule - a phantom shortage that copies nothing.)
-Replicates(d) == \E k \in 1..Len(d.tasks) : Len(d.tasks[k].nodes) > 0
-Quiet(hs) == \A n \in hs : LET d == Decide27(n, hs, {}, {}) IN ~Replicates(d) /\ d.del = "none"
-NoTasks(hs) == \A n \in hs : ~Replicates(Decide27(n, hs, {}, {}))
-=\* a check "replicates" when it hands the replicator a task with at least one candidate node. (With overlapping
-\* rules the code as found keeps calling the replicator with an EMPTY candidate list: a holder remembered from
-\* an earlier rule does not lower the shortage of a later rule - a phantom shortage that copies nothing.)
-Replicates(d) == \E k \in 1..Len(d.tasks) : Len(d.tasks[k].nodes) > 0
-Quiet(hs) == \A n \in hs : LET d == Decide27(n, hs, {}, {}) IN ~Replicates(d) /\ d.del = "none"
-NoTasks(hs) == \A n \in hs : ~Replicates(Decide27(n, hs, {}, {}))
- \* a check "replicates" when it hands the replicator a task with at least one candidate node. (With overlapping
-\* rules the code as found keeps calling the replicator with an EMPTY candidate list: a holder remembered from
-\* an earlier rule does not lower the shortage of a later rule - a phantom shortage that copies nothing.)
-Replicates(d) == \E k \in 1..Len(d.tasks) : Len(d.tasks[k].nodes) > 0
-Quiet(hs) == \A n \in hs : LET d == Decide27(n, hs, {}, {}) IN ~Replicates(d) /\ d.del = "none"
-NoTasks(hs) == \A n \in hs : ~Replicates(Decide27(n, hs, {}, {}))
-"\* a check "replicates" when it hands the replicator a task with at least one candidate node. (With overlapping
-\* rules the code as found keeps calling the replicator with an EMPTY candidate list: a holder remembered from
-\* an earlier rule does not lower the shortage of a later rule - a phantom shortage that copies nothing.)
-Replicates(d) == \E k \in 1..Len(d.tasks) : Len(d.tasks[k].nodes) > 0
-Quiet(hs) == \A n \in hs : LET d == Decide27(n, hs, {}, {}) IN ~Replicates(d) /\ d.del = "none"
-NoTasks(hs) == \A n \in hs : ~Replicates(Decide27(n, hs, {}, {}))
-c\* a check "replicates" when it hands the replicator a task with at least one candidate node. (With overlapping
-\* rules the code as found keeps calling the replicator with an EMPTY candidate list: a holder remembered from
-\* an earlier rule does not lower the shortage of a later rule - a phantom shortage that copies nothing.)
-Replicates(d) == \E k \in 1..Len(d.tasks) : Len(d.tasks[k].nodes) > 0
-Quiet(hs) == \A n \in hs : LET d == Decide27(n, hs, {}, {}) IN ~Replicates(d) /\ d.del = "none"
-NoTasks(hs) == \A n \in hs : ~Replicates(Decide27(n, hs, {}, {}))
-l\* a check "replicates" when it hands the replicator a task with at least one candidate node. (With overlapping
-\* rules the code as found keeps calling the replicator with an EMPTY candidate list: a holder remembered from
-\* an earlier rule does not lower the shortage of a later rule - a phantom shortage that copies nothing.)
-Replicates(d) == \E k \in 1..Len(d.tasks) : Len(d.tasks[k].nodes) > 0
-Quiet(hs) == \A n \in hs : LET d == Decide27(n, hs, {}, {}) IN ~Replicates(d) /\ d.del = "none"
-NoTasks(hs) == \A n \in hs : ~Replicates(Decide27(n, hs, {}, {}))
-u\* a check "replicates" when it hands the replicator a task with at least one candidate node. (With overlapping
-\* rules the code as found keeps calling the replicator with an EMPTY candidate list: a holder remembered from
-\* an earlier rule does not lower the shortage of a later rule - a phantom shortage that copies nothing.)
-Replicates(d) == \E k \in 1..Len(d.tasks) : Len(d.tasks[k].nodes) > 0
-Quiet(hs) == \A n \in hs : LET d == Decide27(n, hs, {}, {}) IN ~Replicates(d) /\ d.del = "none"
-NoTasks(hs) == \A n \in hs : ~Replicates(Decide27(n, hs, {}, {}))
-s\* a check "replicates" when it hands the replicator a task with at least one candidate node. (With overlapping
-\* rules the code as found keeps calling the replicator with an EMPTY candidate list: a holder remembered from
-\* an earlier rule does not lower the shortage of a later rule - a phantom shortage that copies nothing.)
-Replicates(d) == \E k \in 1..Len(d.tasks) : Len(d.tasks[k].nodes) > 0
-Quiet(hs) == \A n \in hs : LET d == Decide27(n, hs, {}, {}) IN ~Replicates(d) /\ d.del = "none"
-NoTasks(hs) == \A n \in hs : ~Replicates(Decide27(n, hs, {}, {}))
-t\* a check "replicates" when it hands the replicator a task with at least one candidate node. (With overlapping
-\* rules the code as found keeps calling the replicator with an EMPTY candidate list: a holder remembered from
-\* an earlier rule does not lower the shortage of a later rule - a phantom shortage that copies nothing.)
-Replicates(d) == \E k \in 1..Len(d.tasks) : Len(d.tasks[k].nodes) > 0
-Quiet(hs) == \A n \in hs : LET d == Decide27(n, hs, {}, {}) IN ~Replicates(d) /\ d.del = "none"
-NoTasks(hs) == \A n \in hs : ~Replicates(Decide27(n, hs, {}, {}))
-e\* a check "replicates" when it hands the replicator a task with at least one candidate node. (With overlapping
-\* rules the code as found keeps calling the replicator with an EMPTY candidate list: a holder remembered from
-\* an earlier rule does not lower the shortage of a later rule - a phantom shortage that copies nothing.)
-Replicates(d) == \E k \in 1..Len(d.tasks) : Len(d.tasks[k].nodes) > 0
-Quiet(hs) == \A n \in hs : LET d == Decide27(n, hs, {}, {}) IN ~Replicates(d) /\ d.del = "none"
-NoTasks(hs) == \A n \in hs : ~Replicates(Decide27(n, hs, {}, {}))
-r\* a check "replicates" when it hands the replicator a task with at least one candidate node. (With overlapping
-\* rules the code as found keeps calling the replicator with an EMPTY candidate list: a holder remembered from
-\* an earlier rule does not lower the shortage of a later rule - a phantom shortage that copies nothing.)
-Replicates(d) == \E k \in 1..Len(d.tasks) : Len(d.tasks[k].nodes) > 0
-Quiet(hs) == \A n \in hs : LET d == Decide27(n, hs, {}, {}) IN ~Replicates(d) /\ d.del = "none"
-NoTasks(hs) == \A n \in hs : ~Replicates(Decide27(n, hs, {}, {}))
-"\* a check "replicates" when it hands the replicator a task with at least one candidate node. (With overlapping
-\* rules the code as found keeps calling the replicator with an EMPTY candidate list: a holder remembered from
-\* an earlier rule does not lower the shortage of a later rule - a phantom shortage that copies nothing.)
-Replicates(d) == \E k \in 1..Len(d.tasks) : Len(d.tasks[k].nodes) > 0
-Quiet(hs) == \A n \in hs : LET d == Decide27(n, hs, {}, {}) IN ~Replicates(d) /\ d.del = "none"
-NoTasks(hs) == \A n \in hs : ~Replicates(Decide27(n, hs, {}, {}))
- \* a check "replicates" when it hands the replicator a task with at least one candidate node. (With overlapping
-\* rules the code as found keeps calling the replicator with an EMPTY candidate list: a holder remembered from
-\* an earlier rule does not lower the shortage of a later rule - a phantom shortage that copies nothing.)
-Replicates(d) == \E k \in 1..Len(d.tasks) : Len(d.tasks[k].nodes) > 0
-Quiet(hs) == \A n \in hs : LET d == Decide27(n, hs, {}, {}) IN ~Replicates(d) /\ d.del = "none"
-NoTasks(hs) == \A n \in hs : ~Replicates(Decide27(n, hs, {}, {}))
-/\* a check "replicates" when it hands the replicator a task with at least one candidate node. (With overlapping
-\* rules the code as found keeps calling the replicator with an EMPTY candidate list: a holder remembered from
-\* an earlier rule does not lower the shortage of a later rule - a phantom shortage that copies nothing.)
-Replicates(d) == \E k \in 1..Len(d.tasks) : Len(d.tasks[k].nodes) > 0
-Quiet(hs) == \A n \in hs : LET d == Decide27(n, hs, {}, {}) IN ~Replicates(d) /\ d.del = "none"
-NoTasks(hs) == \A n \in hs : ~Replicates(Decide27(n, hs, {}, {}))
-\\* a check "replicates" when it hands the replicator a task with at least one candidate node. (With overlapping
-\* rules the code as found keeps calling the replicator with an EMPTY candidate list: a holder remembered from
-\* an earlier rule does not lower the shortage of a later rule - a phantom shortage that copies nothing.)
-Replicates(d) == \E k \in 1..Len(d.tasks) : Len(d.tasks[k].nodes) > 0
-Quiet(hs) == \A n \in hs : LET d == Decide27(n, hs, {}, {}) IN ~Replicates(d) /\ d.del = "none"
-NoTasks(hs) == \A n \in hs : ~Replicates(Decide27(n, hs, {}, {}))
- \* a check "replicates" when it hands the replicator a task with at least one candidate node. (With overlapping
-\* rules the code as found keeps calling the replicator with an EMPTY candidate list: a holder remembered from
-\* an earlier rule does not lower the shortage of a later rule - a phantom shortage that copies nothing.)
-Replicates(d) == \E k \in 1..Len(d.tasks) : Len(d.tasks[k].nodes) > 0
-Quiet(hs) == \A n \in hs : LET d == Decide27(n, hs, {}, {}) IN ~Replicates(d) /\ d.del = "none"
-NoTasks(hs) == \A n \in hs : ~Replicates(Decide27(n, hs, {}, {}))
-r\* a check "replicates" when it hands the replicator a task with at least one candidate node. (With overlapping
-\* rules the code as found keeps calling the replicator with an EMPTY candidate list: a holder remembered from
-\* an earlier rule does not lower the shortage of a later rule - a phantom shortage that copies nothing.)
-Replicates(d) == \E k \in 1..Len(d.tasks) : Len(d.tasks[k].nodes) > 0
-Quiet(hs) == \A n \in hs : LET d == Decide27(n, hs, {}, {}) IN ~Replicates(d) /\ d.del = "none"
-NoTasks(hs) == \A n \in hs : ~Replicates(Decide27(n, hs, {}, {}))
- \* a check "replicates" when it hands the replicator a task with at least one candidate node. (With overlapping
-\* rules the code as found keeps calling the replicator with an EMPTY candidate list: a holder remembered from
-\* an earlier rule does not lower the shortage of a later rule - a phantom shortage that copies nothing.)
-Replicates(d) == \E k \in 1..Len(d.tasks) : Len(d.tasks[k].nodes) > 0
-Quiet(hs) == \A n \in hs : LET d == Decide27(n, hs, {}, {}) IN ~Replicates(d) /\ d.del = "none"
-NoTasks(hs) == \A n \in hs : ~Replicates(Decide27(n, hs, {}, {}))
-=\* a check "replicates" when it hands the replicator a task with at least one candidate node. (With overlapping
-\* rules the code as found keeps calling the replicator with an EMPTY candidate list: a holder remembered from
-\* an earlier rule does not lower the shortage of a later rule - a phantom shortage that copies nothing.)
-Replicates(d) == \E k \in 1..Len(d.tasks) : Len(d.tasks[k].nodes) > 0
-Quiet(hs) == \A n \in hs : LET d == Decide27(n, hs, {}, {}) IN ~Replicates(d) /\ d.del = "none"
-NoTasks(hs) == \A n \in hs : ~Replicates(Decide27(n, hs, {}, {}))
- \* a check "replicates" when it hands the replicator a task with at least one candidate node. (With overlapping
-\* rules the code as found keeps calling the replicator with an EMPTY candidate list: a holder remembered from
-\* an earlier rule does not lower the shortage of a later rule - a phantom shortage that copies nothing.)
-Replicates(d) == \E k \in 1..Len(d.tasks) : Len(d.tasks[k].nodes) > 0
-Quiet(hs) == \A n \in hs : LET d == Decide27(n, hs, {}, {}) IN ~Replicates(d) /\ d.del = "none"
-NoTasks(hs) == \A n \in hs : ~Replicates(Decide27(n, hs, {}, {}))
-0\* a check "replicates" when it hands the replicator a task with at least one candidate node. (With overlapping
-\* rules the code as found keeps calling the replicator with an EMPTY candidate list: a holder remembered from
-\* an earlier rule does not lower the shortage of a later rule - a phantom shortage that copies nothing.)
-Replicates(d) == \E k \in 1..Len(d.tasks) : Len(d.tasks[k].nodes) > 0
-Quiet(hs) == \A n \in hs : LET d == Decide27(n, hs, {}, {}) IN ~Replicates(d) /\ d.del = "none"
-NoTasks(hs) == \A n \in hs : ~Replicates(Decide27(n, hs, {}, {}))
- \* a check "replicates" when it hands the replicator a task with at least one candidate node. (With overlapping
-\* rules the code as found keeps calling the replicator with an EMPTY candidate list: a holder remembered from
-\* an earlier rule does not lower the shortage of a later rule - a phantom shortage that copies nothing.)
-Replicates(d) == \E k \in 1..Len(d.tasks) : Len(d.tasks[k].nodes) > 0
-Quiet(hs) == \A n \in hs : LET d == Decide27(n, hs, {}, {}) IN ~Replicates(d) /\ d.del = "none"
-NoTasks(hs) == \A n \in hs : ~Replicates(Decide27(n, hs, {}, {}))
-/\* a check "replicates" when it hands the replicator a task with at least one candidate node. (With overlapping
-\* rules the code as found keeps calling the replicator with an EMPTY candidate list: a holder remembered from
-\* an earlier rule does not lower the shortage of a later rule - a phantom shortage that copies nothing.)
-Replicates(d) == \E k \in 1..Len(d.tasks) : Len(d.tasks[k].nodes) > 0
-Quiet(hs) == \A n \in hs : LET d == Decide27(n, hs, {}, {}) IN ~Replicates(d) /\ d.del = "none"
-NoTasks(hs) == \A n \in hs : ~Replicates(Decide27(n, hs, {}, {}))
-\\* a check "replicates" when it hands the replicator a task with at least one candidate node. (With overlapping
-\* rules the code as found keeps calling the replicator with an EMPTY candidate list: a holder remembered from
-\* an earlier rule does not lower the shortage of a later rule - a phantom shortage that copies nothing.)
-Replicates(d) == \E k \in 1..Len(d.tasks) : Len(d.tasks[k].nodes) > 0
-Quiet(hs) == \A n \in hs : LET d == Decide27(n, hs, {}, {}) IN ~Replicates(d) /\ d.del = "none"
-NoTasks(hs) == \A n \in hs : ~Replicates(Decide27(n, hs, {}, {}))
- \* a check "replicates" when it hands the replicator a task with at least one candidate node. (With overlapping
-\* rules the code as found keeps calling the replicator with an EMPTY candidate list: a holder remembered from
-\* an earlier rule does not lower the shortage of a later rule - a phantom shortage that copies nothing.)
-Replicates(d) == \E k \in 1..Len(d.tasks) : Len(d.tasks[k].nodes) > 0
-Quiet(hs) == \A n \in hs : LET d == Decide27(n, hs, {}, {}) IN ~Replicates(d) /\ d.del = "none"
-NoTasks(hs) == \A n \in hs : ~Replicates(Decide27(n, hs, {}, {}))
-i\* a check "replicates" when it hands the replicator a task with at least one candidate node. (With overlapping
-\* rules the code as found keeps calling the replicator with an EMPTY candidate list: a holder remembered from
-\* an earlier rule does not lower the shortage of a later rule - a phantom shortage that copies nothing.)
-Replicates(d) == \E k \in 1..Len(d.tasks) : Len(d.tasks[k].nodes) > 0
-Quiet(hs) == \A n \in hs : LET d == Decide27(n, hs, {}, {}) IN ~Replicates(d) /\ d.del = "none"
-NoTasks(hs) == \A n \in hs : ~Replicates(Decide27(n, hs, {}, {}))
- \* a check "replicates" when it hands the replicator a task with at least one candidate node. (With overlapping
-\* rules the code as found keeps calling the replicator with an EMPTY candidate list: a holder remembered from
-\* an earlier rule does not lower the shortage of a later rule - a phantom shortage that copies nothing.)
-Replicates(d) == \E k \in 1..Len(d.tasks) : Len(d.tasks[k].nodes) > 0
-Quiet(hs) == \A n \in hs : LET d == Decide27(n, hs, {}, {}) IN ~Replicates(d) /\ d.del = "none"
-NoTasks(hs) == \A n \in hs : ~Replicates(Decide27(n, hs, {}, {}))
-=\* a check "replicates" when it hands the replicator a task with at least one candidate node. (With overlapping
-\* rules the code as found keeps calling the replicator with an EMPTY candidate list: a holder remembered from
-\* an earlier rule does not lower the shortage of a later rule - a phantom shortage that copies nothing.)
-Replicates(d) == \E k \in 1..Len(d.tasks) : Len(d.tasks[k].nodes) > 0
-Quiet(hs) == \A n \in hs : LET d == Decide27(n, hs, {}, {}) IN ~Replicates(d) /\ d.del = "none"
-NoTasks(hs) == \A n \in hs : ~Replicates(Decide27(n, hs, {}, {}))
- \* a check "replicates" when it hands the replicator a task with at least one candidate node. (With overlapping
-\* rules the code as found keeps calling the replicator with an EMPTY candidate list: a holder remembered from
-\* an earlier rule does not lower the shortage of a later rule - a phantom shortage that copies nothing.)
-Replicates(d) == \E k \in 1..Len(d.tasks) : Len(d.tasks[k].nodes) > 0
-Quiet(hs) == \A n \in hs : LET d == Decide27(n, hs, {}, {}) IN ~Replicates(d) /\ d.del = "none"
-NoTasks(hs) == \A n \in hs : ~Replicates(Decide27(n, hs, {}, {}))
-0\* a check "replicates" when it hands the replicator a task with at least one candidate node. (With overlapping
-\* rules the code as found keeps calling the replicator with an EMPTY candidate list: a holder remembered from
-\* an earlier rule does not lower the shortage of a later rule - a phantom shortage that copies nothing.)
-Replicates(d) == \E k \in 1..Len(d.tasks) : Len(d.tasks[k].nodes) > 0
-Quiet(hs) == \A n \in hs : LET d == Decide27(n, hs, {}, {}) IN ~Replicates(d) /\ d.del = "none"
-NoTasks(hs) == \A n \in hs : ~Replicates(Decide27(n, hs, {}, {}))
- \* a check "replicates" when it hands the replicator a task with at least one candidate node. (With overlapping
-\* rules the code as found keeps calling the replicator with an EMPTY candidate list: a holder remembered from
-\* an earlier rule does not lower the shortage of a later rule - a phantom shortage that copies nothing.)
-Replicates(d) == \E k \in 1..Len(d.tasks) : Len(d.tasks[k].nodes) > 0
-Quiet(hs) == \A n \in hs : LET d == Decide27(n, hs, {}, {}) IN ~Replicates(d) /\ d.del = "none"
-NoTasks(hs) == \A n \in hs : ~Replicates(Decide27(n, hs, {}, {}))
-/\* a check "replicates" when it hands the replicator a task with at least one candidate node. (With overlapping
-\* rules the code as found keeps calling the replicator with an EMPTY candidate list: a holder remembered from
-\* an earlier rule does not lower the shortage of a later rule - a phantom shortage that copies nothing.)
-Replicates(d) == \E k \in 1..Len(d.tasks) : Len(d.tasks[k].nodes) > 0
-Quiet(hs) == \A n \in hs : LET d == Decide27(n, hs, {}, {}) IN ~Replicates(d) /\ d.del = "none"
-NoTasks(hs) == \A n \in hs : ~Replicates(Decide27(n, hs, {}, {}))
-\\* a check "replicates" when it hands the replicator a task with at least one candidate node. (With overlapping
-\* rules the code as found keeps calling the replicator with an EMPTY candidate list: a holder remembered from
-\* an earlier rule does not lower the shortage of a later rule - a phantom shortage that copies nothing.)
-Replicates(d) == \E k \in 1..Len(d.tasks) : Len(d.tasks[k].nodes) > 0
-Quiet(hs) == \A n \in hs : LET d == Decide27(n, hs, {}, {}) IN ~Replicates(d) /\ d.del = "none"
-NoTasks(hs) == \A n \in hs : ~Replicates(Decide27(n, hs, {}, {}))
- \* a check "replicates" when it hands the replicator a task with at least one candidate node. (With overlapping
-\* rules the code as found keeps calling the replicator with an EMPTY candidate list: a holder remembered from
-\* an earlier rule does not lower the shortage of a later rule - a phantom shortage that copies nothing.)
-Replicates(d) == \E k \in 1..Len(d.tasks) : Len(d.tasks[k].nodes) > 0
-Quiet(hs) == \A n \in hs : LET d == Decide27(n, hs, {}, {}) IN ~Replicates(d) /\ d.del = "none"
-NoTasks(hs) == \A n \in hs : ~Replicates(Decide27(n, hs, {}, {}))
-c\* a check "replicates" when it hands the replicator a task with at least one candidate node. (With overlapping
-\* rules the code as found keeps calling the replicator with an EMPTY candidate list: a holder remembered from
-\* an earlier rule does not lower the shortage of a later rule - a phantom shortage that copies nothing.)
-Replicates(d) == \E k \in 1..Len(d.tasks) : Len(d.tasks[k].nodes) > 0
-Quiet(hs) == \A n \in hs : LET d == Decide27(n, hs, {}, {}) IN ~Replicates(d) /\ d.del = "none"
-NoTasks(hs) == \A n \in hs : ~Replicates(Decide27(n, hs, {}, {}))
- \* a check "replicates" when it hands the replicator a task with at least one candidate node. (With overlapping
-\* rules the code as found keeps calling the replicator with an EMPTY candidate list: a holder remembered from
-\* an earlier rule does not lower the shortage of a later rule - a phantom shortage that copies nothing.)
-Replicates(d) == \E k \in 1..Len(d.tasks) : Len(d.tasks[k].nodes) > 0
-Quiet(hs) == \A n \in hs : LET d == Decide27(n, hs, {}, {}) IN ~Replicates(d) /\ d.del = "none"
-NoTasks(hs) == \A n \in hs : ~Replicates(Decide27(n, hs, {}, {}))
-=\* a check "replicates" when it hands the replicator a task with at least one candidate node. (With overlapping
-\* rules the code as found keeps calling the replicator with an EMPTY candidate list: a holder remembered from
-\* an earlier rule does not lower the shortage of a later rule - a phantom shortage that copies nothing.)
-Replicates(d) == \E k \in 1..Len(d.tasks) : Len(d.tasks[k].nodes) > 0
-Quiet(hs) == \A n \in hs : LET d == Decide27(n, hs, {}, {}) IN ~Replicates(d) /\ d.del = "none"
-NoTasks(hs) == \A n \in hs : ~Replicates(Decide27(n, hs, {}, {}))
- \* a check "replicates" when it hands the replicator a task with at least one candidate node. (With overlapping
-\* rules the code as found keeps calling the replicator with an EMPTY candidate list: a holder remembered from
-\* an earlier rule does not lower the shortage of a later rule - a phantom shortage that copies nothing.)
-Replicates(d) == \E k \in 1..Len(d.tasks) : Len(d.tasks[k].nodes) > 0
-Quiet(hs) == \A n \in hs : LET d == Decide27(n, hs, {}, {}) IN ~Replicates(d) /\ d.del = "none"
-NoTasks(hs) == \A n \in hs : ~Replicates(Decide27(n, hs, {}, {}))
-0\* a check "replicates" when it hands the replicator a task with at least one candidate node. (With overlapping
-\* rules the code as found keeps calling the replicator with an EMPTY candidate list: a holder remembered from
-\* an earlier rule does not lower the shortage of a later rule - a phantom shortage that copies nothing.)
-Replicates(d) == \E k \in 1..Len(d.tasks) : Len(d.tasks[k].nodes) > 0
-Quiet(hs) == \A n \in hs : LET d == Decide27(n, hs, {}, {}) IN ~Replicates(d) /\ d.del = "none"
-NoTasks(hs) == \A n \in hs : ~Replicates(Decide27(n, hs, {}, {}))
- \* a check "replicates" when it hands the replicator a task with at least one candidate node. (With overlapping
-\* rules the code as found keeps calling the replicator with an EMPTY candidate list: a holder remembered from
-\* an earlier rule does not lower the shortage of a later rule - a phantom shortage that copies nothing.)
-Replicates(d) == \E k \in 1..Len(d.tasks) : Len(d.tasks[k].nodes) > 0
-Quiet(hs) == \A n \in hs : LET d == Decide27(n, hs, {}, {}) IN ~Replicates(d) /\ d.del = "none"
-NoTasks(hs) == \A n \in hs : ~Replicates(Decide27(n, hs, {}, {}))
-/\* a check "replicates" when it hands the replicator a task with at least one candidate node. (With overlapping
-\* rules the code as found keeps calling the replicator with an EMPTY candidate list: a holder remembered from
-\* an earlier rule does not lower the shortage of a later rule - a phantom shortage that copies nothing.)
-Replicates(d) == \E k \in 1..Len(d.tasks) : Len(d.tasks[k].nodes) > 0
-Quiet(hs) == \A n \in hs : LET d == Decide27(n, hs, {}, {}) IN ~Replicates(d) /\ d.del = "none"
-NoTasks(hs) == \A n \in hs : ~Replicates(Decide27(n, hs, {}, {}))
-\\* a check "replicates" when it hands the replicator a task with at least one candidate node. (With overlapping
-\* rules the code as found keeps calling the replicator with an EMPTY candidate list: a holder remembered from
-\* an earlier rule does not lower the shortage of a later rule - a phantom shortage that copies nothing.)
-Replicates(d) == \E k \in 1..Len(d.tasks) : Len(d.tasks[k].nodes) > 0
-Quiet(hs) == \A n \in hs : LET d == Decide27(n, hs, {}, {}) IN ~Replicates(d) /\ d.del = "none"
-NoTasks(hs) == \A n \in hs : ~Replicates(Decide27(n, hs, {}, {}))
- \* a check "replicates" when it hands the replicator a task with at least one candidate node. (With overlapping
-\* rules the code as found keeps calling the replicator with an EMPTY candidate list: a holder remembered from
-\* an earlier rule does not lower the shortage of a later rule - a phantom shortage that copies nothing.)
-Replicates(d) == \E k \in 1..Len(d.tasks) : Len(d.tasks[k].nodes) > 0
-Quiet(hs) == \A n \in hs : LET d == Decide27(n, hs, {}, {}) IN ~Replicates(d) /\ d.del = "none"
-NoTasks(hs) == \A n \in hs : ~Replicates(Decide27(n, hs, {}, {}))
-e\* a check "replicates" when it hands the replicator a task with at least one candidate node. (With overlapping
-\* rules the code as found keeps calling the replicator with an EMPTY candidate list: a holder remembered from
-\* an earlier rule does not lower the shortage of a later rule - a phantom shortage that copies nothing.)
-Replicates(d) == \E k \in 1..Len(d.tasks) : Len(d.tasks[k].nodes) > 0
-Quiet(hs) == \A n \in hs : LET d == Decide27(n, hs, {}, {}) IN ~Replicates(d) /\ d.del = "none"
-NoTasks(hs) == \A n \in hs : ~Replicates(Decide27(n, hs, {}, {}))
- \* a check "replicates" when it hands the replicator a task with at least one candidate node. (With overlapping
-\* rules the code as found keeps calling the replicator with an EMPTY candidate list: a holder remembered from
-\* an earlier rule does not lower the shortage of a later rule - a phantom shortage that copies nothing.)
-Replicates(d) == \E k \in 1..Len(d.tasks) : Len(d.tasks[k].nodes) > 0
-Quiet(hs) == \A n \in hs : LET d == Decide27(n, hs, {}, {}) IN ~Replicates(d) /\ d.del = "none"
-NoTasks(hs) == \A n \in hs : ~Replicates(Decide27(n, hs, {}, {}))
-=\* a check "replicates" when it hands the replicator a task with at least one candidate node. (With overlapping
-\* rules the code as found keeps calling the replicator with an EMPTY candidate list: a holder remembered from
-\* an earlier rule does not lower the shortage of a later rule - a phantom shortage that copies nothing.)
-Replicates(d) == \E k \in 1..Len(d.tasks) : Len(d.tasks[k].nodes) > 0
-Quiet(hs) == \A n \in hs : LET d == Decide27(n, hs, {}, {}) IN ~Replicates(d) /\ d.del = "none"
-NoTasks(hs) == \A n \in hs : ~Replicates(Decide27(n, hs, {}, {}))
- \* a check "replicates" when it hands the replicator a task with at least one candidate node. (With overlapping
-\* rules the code as found keeps calling the replicator with an EMPTY candidate list: a holder remembered from
-\* an earlier rule does not lower the shortage of a later rule - a phantom shortage that copies nothing.)
-Replicates(d) == \E k \in 1..Len(d.tasks) : Len(d.tasks[k].nodes) > 0
-Quiet(hs) == \A n \in hs : LET d == Decide27(n, hs, {}, {}) IN ~Replicates(d) /\ d.del = "none"
-NoTasks(hs) == \A n \in hs : ~Replicates(Decide27(n, hs, {}, {}))
-0\* a check "replicates" when it hands the replicator a task with at least one candidate node. (With overlapping
-\* rules the code as found keeps calling the replicator with an EMPTY candidate list: a holder remembered from
-\* an earlier rule does not lower the shortage of a later rule - a phantom shortage that copies nothing.)
-Replicates(d) == \E k \in 1..Len(d.tasks) : Len(d.tasks[k].nodes) > 0
-Quiet(hs) == \A n \in hs : LET d == Decide27(n, hs, {}, {}) IN ~Replicates(d) /\ d.del = "none"
-NoTasks(hs) == \A n \in hs : ~Replicates(Decide27(n, hs, {}, {}))
- \* a check "replicates" when it hands the replicator a task with at least one candidate node. (With overlapping
-\* rules the code as found keeps calling the replicator with an EMPTY candidate list: a holder remembered from
-\* an earlier rule does not lower the shortage of a later rule - a phantom shortage that copies nothing.)
-Replicates(d) == \E k \in 1..Len(d.tasks) : Len(d.tasks[k].nodes) > 0
-Quiet(hs) == \A n \in hs : LET d == Decide27(n, hs, {}, {}) IN ~Replicates(d) /\ d.del = "none"
-NoTasks(hs) == \A n \in hs : ~Replicates(Decide27(n, hs, {}, {}))
-/\* a check "replicates" when it hands the replicator a task with at least one candidate node. (With overlapping
-\* rules the code as found keeps calling the replicator with an EMPTY candidate list: a holder remembered from
-\* an earlier rule does not lower the shortage of a later rule - a phantom shortage that copies nothing.)
-Replicates(d) == \E k \in 1..Len(d.tasks) : Len(d.tasks[k].nodes) > 0
-Quiet(hs) == \A n \in hs : LET d == Decide27(n, hs, {}, {}) IN ~Replicates(d) /\ d.del = "none"
-NoTasks(hs) == \A n \in hs : ~Replicates(Decide27(n, hs, {}, {}))
-\\* a check "replicates" when it hands the replicator a task with at least one candidate node. (With overlapping
-\* rules the code as found keeps calling the replicator with an EMPTY candidate list: a holder remembered from
-\* an earlier rule does not lower the shortage of a later rule - a phantom shortage that copies nothing.)
-Replicates(d) == \E k \in 1..Len(d.tasks) : Len(d.tasks[k].nodes) > 0
-Quiet(hs) == \A n \in hs : LET d == Decide27(n, hs, {}, {}) IN ~Replicates(d) /\ d.del = "none"
-NoTasks(hs) == \A n \in hs : ~Replicates(Decide27(n, hs, {}, {}))
- \* a check "replicates" when it hands the replicator a task with at least one candidate node. (With overlapping
-\* rules the code as found keeps calling the replicator with an EMPTY candidate list: a holder remembered from
-\* an earlier rule does not lower the shortage of a later rule - a phantom shortage that copies nothing.)
-Replicates(d) == \E k \in 1..Len(d.tasks) : Len(d.tasks[k].nodes) > 0
-Quiet(hs) == \A n \in hs : LET d == Decide27(n, hs, {}, {}) IN ~Replicates(d) /\ d.del = "none"
-NoTasks(hs) == \A n \in hs : ~Replicates(Decide27(n, hs, {}, {}))
-o\* a check "replicates" when it hands the replicator a task with at least one candidate node. (With overlapping
-\* rules the code as found keeps calling the replicator with an EMPTY candidate list: a holder remembered from
-\* an earlier rule does not lower the shortage of a later rule - a phantom shortage that copies nothing.)
-Replicates(d) == \E k \in 1..Len(d.tasks) : Len(d.tasks[k].nodes) > 0
-Quiet(hs) == \A n \in hs : LET d == Decide27(n, hs, {}, {}) IN ~Replicates(d) /\ d.del = "none"
-NoTasks(hs) == \A n \in hs : ~Replicates(Decide27(n, hs, {}, {}))
-u\* a check "replicates" when it hands the replicator a task with at least one candidate node. (With overlapping
-\* rules the code as found keeps calling the replicator with an EMPTY candidate list: a holder remembered from
-\* an earlier rule does not lower the shortage of a later rule - a phantom shortage that copies nothing.)
-Replicates(d) == \E k \in 1..Len(d.tasks) : Len(d.tasks[k].nodes) > 0
-Quiet(hs) == \A n \in hs : LET d == Decide27(n, hs, {}, {}) IN ~Replicates(d) /\ d.del = "none"
-NoTasks(hs) == \A n \in hs : ~Replicates(Decide27(n, hs, {}, {}))
-t\* a check "replicates" when it hands the replicator a task with at least one candidate node. (With overlapping
-\* rules the code as found keeps calling the replicator with an EMPTY candidate list: a holder remembered from
-\* an earlier rule does not lower the shortage of a later rule - a phantom shortage that copies nothing.)
-Replicates(d) == \E k \in 1..Len(d.tasks) : Len(d.tasks[k].nodes) > 0
-Quiet(hs) == \A n \in hs : LET d == Decide27(n, hs, {}, {}) IN ~Replicates(d) /\ d.del = "none"
-NoTasks(hs) == \A n \in hs : ~Replicates(Decide27(n, hs, {}, {}))
- \* a check "replicates" when it hands the replicator a task with at least one candidate node. (With overlapping
-\* rules the code as found keeps calling the replicator with an EMPTY candidate list: a holder remembered from
-\* an earlier rule does not lower the shortage of a later rule - a phantom shortage that copies nothing.)
-Replicates(d) == \E k \in 1..Len(d.tasks) : Len(d.tasks[k].nodes) > 0
-Quiet(hs) == \A n \in hs : LET d == Decide27(n, hs, {}, {}) IN ~Replicates(d) /\ d.del = "none"
-NoTasks(hs) == \A n \in hs : ~Replicates(Decide27(n, hs, {}, {}))
-=\* a check "replicates" when it hands the replicator a task with at least one candidate node. (With overlapping
-\* rules the code as found keeps calling the replicator with an EMPTY candidate list: a holder remembered from
-\* an earlier rule does not lower the shortage of a later rule - a phantom shortage that copies nothing.)
-Replicates(d) == \E k \in 1..Len(d.tasks) : Len(d.tasks[k].nodes) > 0
-Quiet(hs) == \A n \in hs : LET d == Decide27(n, hs, {}, {}) IN ~Replicates(d) /\ d.del = "none"
-NoTasks(hs) == \A n \in hs : ~Replicates(Decide27(n, hs, {}, {}))
- \* a check "replicates" when it hands the replicator a task with at least one candidate node. (With overlapping
-\* rules the code as found keeps calling the replicator with an EMPTY candidate list: a holder remembered from
-\* an earlier rule does not lower the shortage of a later rule - a phantom shortage that copies nothing.)
-Replicates(d) == \E k \in 1..Len(d.tasks) : Len(d.tasks[k].nodes) > 0
-Quiet(hs) == \A n \in hs : LET d == Decide27(n, hs, {}, {}) IN ~Replicates(d) /\ d.del = "none"
-NoTasks(hs) == \A n \in hs : ~Replicates(Decide27(n, hs, {}, {}))
-0\* a check "replicates" when it hands the replicator a task with at least one candidate node. (With overlapping
-\* rules the code as found keeps calling the replicator with an EMPTY candidate list: a holder remembered from
-\* an earlier rule does not lower the shortage of a later rule - a phantom shortage that copies nothing.)
-Replicates(d) == \E k \in 1..Len(d.tasks) : Len(d.tasks[k].nodes) > 0
-Quiet(hs) == \A n \in hs : LET d == Decide27(n, hs, {}, {}) IN ~Replicates(d) /\ d.del = "none"
-NoTasks(hs) == \A n \in hs : ~Replicates(Decide27(n, hs, {}, {}))
-
-\* a check "replicates" when it hands the replicator a task with at least one candidate node. (With overlapping
-\* rules the code as found keeps calling the replicator with an EMPTY candidate list: a holder remembered from
-\* an earlier rule does not lower the shortage of a later rule - a phantom shortage that copies nothing.)
-Replicates(d) == \E k \in 1..Len(d.tasks) : Len(d.tasks[k].nodes) > 0
-Quiet(hs) == \A n \in hs : LET d == Decide27(n, hs, {}, {}) IN ~Replicates(d) /\ d.del = "none"
-NoTasks(hs) == \A n \in hs : ~Replicates(Decide27(n, hs, {}, {}))
-
-\* a check "replicates" when it hands the replicator a task with at least one candidate node. (With overlapping
-\* rules the code as found keeps calling the replicator with an EMPTY candidate list: a holder remembered from
-\* an earlier rule does not lower the shortage of a later rule - a phantom shortage that copies nothing.)
-Replicates(d) == \E k \in 1..Len(d.tasks) : Len(d.tasks[k].nodes) > 0
-Quiet(hs) == \A n \in hs : LET d == Decide27(n, hs, {}, {}) IN ~Replicates(d) /\ d.del = "none"
-NoTasks(hs) == \A n \in hs : ~Replicates(Decide27(n, hs, {}, {}))
-\\* a check "replicates" when it hands the replicator a task with at least one candidate node. (With overlapping
-\* rules the code as found keeps calling the replicator with an EMPTY candidate list: a holder remembered from
-\* an earlier rule does not lower the shortage of a later rule - a phantom shortage that copies nothing.)
-Replicates(d) == \E k \in 1..Len(d.tasks) : Len(d.tasks[k].nodes) > 0
-Quiet(hs) == \A n \in hs : LET d == Decide27(n, hs, {}, {}) IN ~Replicates(d) /\ d.del = "none"
-NoTasks(hs) == \A n \in hs : ~Replicates(Decide27(n, hs, {}, {}))
-*\* a check "replicates" when it hands the replicator a task with at least one candidate node. (With overlapping
-\* rules the code as found keeps calling the replicator with an EMPTY candidate list: a holder remembered from
-\* an earlier rule does not lower the shortage of a later rule - a phantom shortage that copies nothing.)
-Replicates(d) == \E k \in 1..Len(d.tasks) : Len(d.tasks[k].nodes) > 0
-Quiet(hs) == \A n \in hs : LET d == Decide27(n, hs, {}, {}) IN ~Replicates(d) /\ d.del = "none"
-NoTasks(hs) == \A n \in hs : ~Replicates(Decide27(n, hs, {}, {}))
- \* a check "replicates" when it hands the replicator a task with at least one candidate node. (With overlapping
-\* rules the code as found keeps calling the replicator with an EMPTY candidate list: a holder remembered from
-\* an earlier rule does not lower the shortage of a later rule - a phantom shortage that copies nothing.)
-Replicates(d) == \E k \in 1..Len(d.tasks) : Len(d.tasks[k].nodes) > 0
-Quiet(hs) == \A n \in hs : LET d == Decide27(n, hs, {}, {}) IN ~Replicates(d) /\ d.del = "none"
-NoTasks(hs) == \A n \in hs : ~Replicates(Decide27(n, hs, {}, {}))
-a\* a check "replicates" when it hands the replicator a task with at least one candidate node. (With overlapping
-\* rules the code as found keeps calling the replicator with an EMPTY candidate list: a holder remembered from
-\* an earlier rule does not lower the shortage of a later rule - a phantom shortage that copies nothing.)
-Replicates(d) == \E k \in 1..Len(d.tasks) : Len(d.tasks[k].nodes) > 0
-Quiet(hs) == \A n \in hs : LET d == Decide27(n, hs, {}, {}) IN ~Replicates(d) /\ d.del = "none"
-NoTasks(hs) == \A n \in hs : ~Replicates(Decide27(n, hs, {}, {}))
- \* a check "replicates" when it hands the replicator a task with at least one candidate node. (With overlapping
-\* rules the code as found keeps calling the replicator with an EMPTY candidate list: a holder remembered from
-\* an earlier rule does not lower the shortage of a later rule - a phantom shortage that copies nothing.)
-Replicates(d) == \E k \in 1..Len(d.tasks) : Len(d.tasks[k].nodes) > 0
-Quiet(hs) == \A n \in hs : LET d == Decide27(n, hs, {}, {}) IN ~Replicates(d) /\ d.del = "none"
-NoTasks(hs) == \A n \in hs : ~Replicates(Decide27(n, hs, {}, {}))
-r\* a check "replicates" when it hands the replicator a task with at least one candidate node. (With overlapping
-\* rules the code as found keeps calling the replicator with an EMPTY candidate list: a holder remembered from
-\* an earlier rule does not lower the shortage of a later rule - a phantom shortage that copies nothing.)
-Replicates(d) == \E k \in 1..Len(d.tasks) : Len(d.tasks[k].nodes) > 0
-Quiet(hs) == \A n \in hs : LET d == Decide27(n, hs, {}, {}) IN ~Replicates(d) /\ d.del = "none"
-NoTasks(hs) == \A n \in hs : ~Replicates(Decide27(n, hs, {}, {}))
-e\* a check "replicates" when it hands the replicator a task with at least one candidate node. (With overlapping
-\* rules the code as found keeps calling the replicator with an EMPTY candidate list: a holder remembered from
-\* an earlier rule does not lower the shortage of a later rule - a phantom shortage that copies nothing.)
-Replicates(d) == \E k \in 1..Len(d.tasks) : Len(d.tasks[k].nodes) > 0
-Quiet(hs) == \A n \in hs : LET d == Decide27(n, hs, {}, {}) IN ~Replicates(d) /\ d.del = "none"
-NoTasks(hs) == \A n \in hs : ~Replicates(Decide27(n, hs, {}, {}))
-p\* a check "replicates" when it hands the replicator a task with at least one candidate node. (With overlapping
-\* rules the code as found keeps calling the replicator with an EMPTY candidate list: a holder remembered from
-\* an earlier rule does not lower the shortage of a later rule - a phantom shortage that copies nothing.)
-Replicates(d) == \E k \in 1..Len(d.tasks) : Len(d.tasks[k].nodes) > 0
-Quiet(hs) == \A n \in hs : LET d == Decide27(n, hs, {}, {}) IN ~Replicates(d) /\ d.del = "none"
-NoTasks(hs) == \A n \in hs : ~Replicates(Decide27(n, hs, {}, {}))
-l\* a check "replicates" when it hands the replicator a task with at least one candidate node. (With overlapping
-\* rules the code as found keeps calling the replicator with an EMPTY candidate list: a holder remembered from
-\* an earlier rule does not lower the shortage of a later rule - a phantom shortage that copies nothing.)
-Replicates(d) == \E k \in 1..Len(d.tasks) : Len(d.tasks[k].nodes) > 0
-Quiet(hs) == \A n \in hs : LET d == Decide27(n, hs, {}, {}) IN ~Replicates(d) /\ d.del = "none"
-NoTasks(hs) == \A n \in hs : ~Replicates(Decide27(n, hs, {}, {}))
-i\* a check "replicates" when it hands the replicator a task with at least one candidate node. (With overlapping
-\* rules the code as found keeps calling the replicator with an EMPTY candidate list: a holder remembered from
-\* an earlier rule does not lower the shortage of a later rule - a phantom shortage that copies nothing.)
-Replicates(d) == \E k \in 1..Len(d.tasks) : Len(d.tasks[k].nodes) > 0
-Quiet(hs) == \A n \in hs : LET d == Decide27(n, hs, {}, {}) IN ~Replicates(d) /\ d.del = "none"
-NoTasks(hs) == \A n \in hs : ~Replicates(Decide27(n, hs, {}, {}))
-c\* a check "replicates" when it hands the replicator a task with at least one candidate node. (With overlapping
-\* rules the code as found keeps calling the replicator with an EMPTY candidate list: a holder remembered from
-\* an earlier rule does not lower the shortage of a later rule - a phantom shortage that copies nothing.)
-Replicates(d) == \E k \in 1..Len(d.tasks) : Len(d.tasks[k].nodes) > 0
-Quiet(hs) == \A n \in hs : LET d == Decide27(n, hs, {}, {}) IN ~Replicates(d) /\ d.del = "none"
-NoTasks(hs) == \A n \in hs : ~Replicates(Decide27(n, hs, {}, {}))
-a\* a check "replicates" when it hands the replicator a task with at least one candidate node. (With overlapping
-\* rules the code as found keeps calling the replicator with an EMPTY candidate list: a holder remembered from
-\* an earlier rule does not lower the shortage of a later rule - a phantom shortage that copies nothing.)
-Replicates(d) == \E k \in 1..Len(d.tasks) : Len(d.tasks[k].nodes) > 0
-Quiet(hs) == \A n \in hs : LET d == Decide27(n, hs, {}, {}) IN ~Replicates(d) /\ d.del = "none"
-NoTasks(hs) == \A n \in hs : ~Replicates(Decide27(n, hs, {}, {}))
-t\* a check "replicates" when it hands the replicator a task with at least one candidate node. (With overlapping
-\* rules the code as found keeps calling the replicator with an EMPTY candidate list: a holder remembered from
-\* an earlier rule does not lower the shortage of a later rule - a phantom shortage that copies nothing.)
-Replicates(d) == \E k \in 1..Len(d.tasks) : Len(d.tasks[k].nodes) > 0
-Quiet(hs) == \A n \in hs : LET d == Decide27(n, hs, {}, {}) IN ~Replicates(d) /\ d.del = "none"
-NoTasks(hs) == \A n \in hs : ~Replicates(Decide27(n, hs, {}, {}))
-i\* a check "replicates" when it hands the replicator a task with at least one candidate node. (With overlapping
-\* rules the code as found keeps calling the replicator with an EMPTY candidate list: a holder remembered from
-\* an earlier rule does not lower the shortage of a later rule - a phantom shortage that copies nothing.)
-Replicates(d) == \E k \in 1..Len(d.tasks) : Len(d.tasks[k].nodes) > 0
-Quiet(hs) == \A n \in hs : LET d == Decide27(n, hs, {}, {}) IN ~Replicates(d) /\ d.del = "none"
-NoTasks(hs) == \A n \in hs : ~Replicates(Decide27(n, hs, {}, {}))
-o\* a check "replicates" when it hands the replicator a task with at least one candidate node. (With overlapping
-\* rules the code as found keeps calling the replicator with an EMPTY candidate list: a holder remembered from
-\* an earlier rule does not lower the shortage of a later rule - a phantom shortage that copies nothing.)
-Replicates(d) == \E k \in 1..Len(d.tasks) : Len(d.tasks[k].nodes) > 0
-Quiet(hs) == \A n \in hs : LET d == Decide27(n, hs, {}, {}) IN ~Replicates(d) /\ d.del = "none"
-NoTasks(hs) == \A n \in hs : ~Replicates(Decide27(n, hs, {}, {}))
-n\* a check "replicates" when it hands the replicator a task with at least one candidate node. (With overlapping
-\* rules the code as found keeps calling the replicator with an EMPTY candidate list: a holder remembered from
-\* an earlier rule does not lower the shortage of a later rule - a phantom shortage that copies nothing.)
-Replicates(d) == \E k \in 1..Len(d.tasks) : Len(d.tasks[k].nodes) > 0
-Quiet(hs) == \A n \in hs : LET d == Decide27(n, hs, {}, {}) IN ~Replicates(d) /\ d.del = "none"
-NoTasks(hs) == \A n \in hs : ~Replicates(Decide27(n, hs, {}, {}))
- \* a check "replicates" when it hands the replicator a task with at least one candidate node. (With overlapping
-\* rules the code as found keeps calling the replicator with an EMPTY candidate list: a holder remembered from
-\* an earlier rule does not lower the shortage of a later rule - a phantom shortage that copies nothing.)
-Replicates(d) == \E k \in 1..Len(d.tasks) : Len(d.tasks[k].nodes) > 0
-Quiet(hs) == \A n \in hs : LET d == Decide27(n, hs, {}, {}) IN ~Replicates(d) /\ d.del = "none"
-NoTasks(hs) == \A n \in hs : ~Replicates(Decide27(n, hs, {}, {}))
-t\* a check "replicates" when it hands the replicator a task with at least one candidate node. (With overlapping
-\* rules the code as found keeps calling the replicator with an EMPTY candidate list: a holder remembered from
-\* an earlier rule does not lower the shortage of a later rule - a phantom shortage that copies nothing.)
-Replicates(d) == \E k \in 1..Len(d.tasks) : Len(d.tasks[k].nodes) > 0
-Quiet(hs) == \A n \in hs : LET d == Decide27(n, hs, {}, {}) IN ~Replicates(d) /\ d.del = "none"
-NoTasks(hs) == \A n \in hs : ~Replicates(Decide27(n, hs, {}, {}))
-a\* a check "replicates" when it hands the replicator a task with at least one candidate node. (With overlapping
-\* rules the code as found keeps calling the replicator with an EMPTY candidate list: a holder remembered from
-\* an earlier rule does not lower the shortage of a later rule - a phantom shortage that copies nothing.)
-Replicates(d) == \E k \in 1..Len(d.tasks) : Len(d.tasks[k].nodes) > 0
-Quiet(hs) == \A n \in hs : LET d == Decide27(n, hs, {}, {}) IN ~Replicates(d) /\ d.del = "none"
-NoTasks(hs) == \A n \in hs : ~Replicates(Decide27(n, hs, {}, {}))
-s\* a check "replicates" when it hands the replicator a task with at least one candidate node. (With overlapping
-\* rules the code as found keeps calling the replicator with an EMPTY candidate list: a holder remembered from
-\* an earlier rule does not lower the shortage of a later rule - a phantom shortage that copies nothing.)
-Replicates(d) == \E k \in 1..Len(d.tasks) : Len(d.tasks[k].nodes) > 0
-Quiet(hs) == \A n \in hs : LET d == Decide27(n, hs, {}, {}) IN ~Replicates(d) /\ d.del = "none"
-NoTasks(hs) == \A n \in hs : ~Replicates(Decide27(n, hs, {}, {}))
-k\* a check "replicates" when it hands the replicator a task with at least one candidate node. (With overlapping
-\* rules the code as found keeps calling the replicator with an EMPTY candidate list: a holder remembered from
-\* an earlier rule does not lower the shortage of a later rule - a phantom shortage that copies nothing.)
-Replicates(d) == \E k \in 1..Len(d.tasks) : Len(d.tasks[k].nodes) > 0
-Quiet(hs) == \A n \in hs : LET d == Decide27(n, hs, {}, {}) IN ~Replicates(d) /\ d.del = "none"
-NoTasks(hs) == \A n \in hs : ~Replicates(Decide27(n, hs, {}, {}))
- \* a check "replicates" when it hands the replicator a task with at least one candidate node. (With overlapping
-\* rules the code as found keeps calling the replicator with an EMPTY candidate list: a holder remembered from
-\* an earlier rule does not lower the shortage of a later rule - a phantom shortage that copies nothing.)
-Replicates(d) == \E k \in 1..Len(d.tasks) : Len(d.tasks[k].nodes) > 0
-Quiet(hs) == \A n \in hs : LET d == Decide27(n, hs, {}, {}) IN ~Replicates(d) /\ d.del = "none"
-NoTasks(hs) == \A n \in hs : ~Replicates(Decide27(n, hs, {}, {}))
-t\* a check "replicates" when it hands the replicator a task with at least one candidate node. (With overlapping
-\* rules the code as found keeps calling the replicator with an EMPTY candidate list: a holder remembered from
-\* an earlier rule does not lower the shortage of a later rule - a phantom shortage that copies nothing.)
-Replicates(d) == \E k \in 1..Len(d.tasks) : Len(d.tasks[k].nodes) > 0
-Quiet(hs) == \A n \in hs : LET d == Decide27(n, hs, {}, {}) IN ~Replicates(d) /\ d.del = "none"
-NoTasks(hs) == \A n \in hs : ~Replicates(Decide27(n, hs, {}, {}))
-h\* a check "replicates" when it hands the replicator a task with at least one candidate node. (With overlapping
-\* rules the code as found keeps calling the replicator with an EMPTY candidate list: a holder remembered from
-\* an earlier rule does not lower the shortage of a later rule - a phantom shortage that copies nothing.)
-Replicates(d) == \E k \in 1..Len(d.tasks) : Len(d.tasks[k].nodes) > 0
-Quiet(hs) == \A n \in hs : LET d == Decide27(n, hs, {}, {}) IN ~Replicates(d) /\ d.del = "none"
-NoTasks(hs) == \A n \in hs : ~Replicates(Decide27(n, hs, {}, {}))
-a\* a check "replicates" when it hands the replicator a task with at least one candidate node. (With overlapping
-\* rules the code as found keeps calling the replicator with an EMPTY candidate list: a holder remembered from
-\* an earlier rule does not lower the shortage of a later rule - a phantom shortage that copies nothing.)
-Replicates(d) == \E k \in 1..Len(d.tasks) : Len(d.tasks[k].nodes) > 0
-Quiet(hs) == \A n \in hs : LET d == Decide27(n, hs, {}, {}) IN ~Replicates(d) /\ d.del = "none"
-NoTasks(hs) == \A n \in hs : ~Replicates(Decide27(n, hs, {}, {}))
-t\* a check "replicates" when it hands the replicator a task with at least one candidate node. (With overlapping
-\* rules the code as found keeps calling the replicator with an EMPTY candidate list: a holder remembered from
-\* an earlier rule does not lower the shortage of a later rule - a phantom shortage that copies nothing.)
-Replicates(d) == \E k \in 1..Len(d.tasks) : Len(d.tasks[k].nodes) > 0
-Quiet(hs) == \A n \in hs : LET d == Decide27(n, hs, {}, {}) IN ~Replicates(d) /\ d.del = "none"
-NoTasks(hs) == \A n \in hs : ~Replicates(Decide27(n, hs, {}, {}))
- \* a check "replicates" when it hands the replicator a task with at least one candidate node. (With overlapping
-\* rules the code as found keeps calling the replicator with an EMPTY candidate list: a holder remembered from
-\* an earlier rule does not lower the shortage of a later rule - a phantom shortage that copies nothing.)
-Replicates(d) == \E k \in 1..Len(d.tasks) : Len(d.tasks[k].nodes) > 0
-Quiet(hs) == \A n \in hs : LET d == Decide27(n, hs, {}, {}) IN ~Replicates(d) /\ d.del = "none"
-NoTasks(hs) == \A n \in hs : ~Replicates(Decide27(n, hs, {}, {}))
-c\* a check "replicates" when it hands the replicator a task with at least one candidate node. (With overlapping
-\* rules the code as found keeps calling the replicator with an EMPTY candidate list: a holder remembered from
-\* an earlier rule does not lower the shortage of a later rule - a phantom shortage that copies nothing.)
-Replicates(d) == \E k \in 1..Len(d.tasks) : Len(d.tasks[k].nodes) > 0
-Quiet(hs) == \A n \in hs : LET d == Decide27(n, hs, {}, {}) IN ~Replicates(d) /\ d.del = "none"
-NoTasks(hs) == \A n \in hs : ~Replicates(Decide27(n, hs, {}, {}))
-a\* a check "replicates" when it hands the replicator a task with at least one candidate node. (With overlapping
-\* rules the code as found keeps calling the replicator with an EMPTY candidate list: a holder remembered from
-\* an earlier rule does not lower the shortage of a later rule - a phantom shortage that copies nothing.)
-Replicates(d) == \E k \in 1..Len(d.tasks) : Len(d.tasks[k].nodes) > 0
-Quiet(hs) == \A n \in hs : LET d == Decide27(n, hs, {}, {}) IN ~Replicates(d) /\ d.del = "none"
-NoTasks(hs) == \A n \in hs : ~Replicates(Decide27(n, hs, {}, {}))
-r\* a check "replicates" when it hands the replicator a task with at least one candidate node. (With overlapping
-\* rules the code as found keeps calling the replicator with an EMPTY candidate list: a holder remembered from
-\* an earlier rule does not lower the shortage of a later rule - a phantom shortage that copies nothing.)
-Replicates(d) == \E k \in 1..Len(d.tasks) : Len(d.tasks[k].nodes) > 0
-Quiet(hs) == \A n \in hs : LET d == Decide27(n, hs, {}, {}) IN ~Replicates(d) /\ d.del = "none"
-NoTasks(hs) == \A n \in hs : ~Replicates(Decide27(n, hs, {}, {}))
-r\* a check "replicates" when it hands the replicator a task with at least one candidate node. (With overlapping
-\* rules the code as found keeps calling the replicator with an EMPTY candidate list: a holder remembered from
-\* an earlier rule does not lower the shortage of a later rule - a phantom shortage that copies nothing.)
-Replicates(d) == \E k \in 1..Len(d.tasks) : Len(d.tasks[k].nodes) > 0
-Quiet(hs) == \A n \in hs : LET d == Decide27(n, hs, {}, {}) IN ~Replicates(d) /\ d.del = "none"
-NoTasks(hs) == \A n \in hs : ~Replicates(Decide27(n, hs, {}, {}))
-i\* a check "replicates" when it hands the replicator a task with at least one candidate node. (With overlapping
-\* rules the code as found keeps calling the replicator with an EMPTY candidate list: a holder remembered from
-\* an earlier rule does not lower the shortage of a later rule - a phantom shortage that copies nothing.)
-Replicates(d) == \E k \in 1..Len(d.tasks) : Len(d.tasks[k].nodes) > 0
-Quiet(hs) == \A n \in hs : LET d == Decide27(n, hs, {}, {}) IN ~Replicates(d) /\ d.del = "none"
-NoTasks(hs) == \A n \in hs : ~Replicates(Decide27(n, hs, {}, {}))
-e\* a check "replicates" when it hands the replicator a task with at least one candidate node. (With overlapping
-\* rules the code as found keeps calling the replicator with an EMPTY candidate list: a holder remembered from
-\* an earlier rule does not lower the shortage of a later rule - a phantom shortage that copies nothing.)
-Replicates(d) == \E k \in 1..Len(d.tasks) : Len(d.tasks[k].nodes) > 0
-Quiet(hs) == \A n \in hs : LET d == Decide27(n, hs, {}, {}) IN ~Replicates(d) /\ d.del = "none"
-NoTasks(hs) == \A n \in hs : ~Replicates(Decide27(n, hs, {}, {}))
-s\* a check "replicates" when it hands the replicator a task with at least one candidate node. (With overlapping
-\* rules the code as found keeps calling the replicator with an EMPTY candidate list: a holder remembered from
-\* an earlier rule does not lower the shortage of a later rule - a phantom shortage that copies nothing.)
-Replicates(d) == \E k \in 1..Len(d.tasks) : Len(d.tasks[k].nodes) > 0
-Quiet(hs) == \A n \in hs : LET d == Decide27(n, hs, {}, {}) IN ~Replicates(d) /\ d.del = "none"
-NoTasks(hs) == \A n \in hs : ~Replicates(Decide27(n, hs, {}, {}))
- \* a check "replicates" when it hands the replicator a task with at least one candidate node. (With overlapping
-\* rules the code as found keeps calling the replicator with an EMPTY candidate list: a holder remembered from
-\* an earlier rule does not lower the shortage of a later rule - a phantom shortage that copies nothing.)
-Replicates(d) == \E k \in 1..Len(d.tasks) : Len(d.tasks[k].nodes) > 0
-Quiet(hs) == \A n \in hs : LET d == Decide27(n, hs, {}, {}) IN ~Replicates(d) /\ d.del = "none"
-NoTasks(hs) == \A n \in hs : ~Replicates(Decide27(n, hs, {}, {}))
-t\* a check "replicates" when it hands the replicator a task with at least one candidate node. (With overlapping
-\* rules the code as found keeps calling the replicator with an EMPTY candidate list: a holder remembered from
-\* an earlier rule does not lower the shortage of a later rule - a phantom shortage that copies nothing.)
-Replicates(d) == \E k \in 1..Len(d.tasks) : Len(d.tasks[k].nodes) > 0
-Quiet(hs) == \A n \in hs : LET d == Decide27(n, hs, {}, {}) IN ~Replicates(d) /\ d.del = "none"
-NoTasks(hs) == \A n \in hs : ~Replicates(Decide27(n, hs, {}, {}))
-h\* a check "replicates" when it hands the replicator a task with at least one candidate node. (With overlapping
-\* rules the code as found keeps calling the replicator with an EMPTY candidate list: a holder remembered from
-\* an earlier rule does not lower the shortage of a later rule - a phantom shortage that copies nothing.)
-Replicates(d) == \E k \in 1..Len(d.tasks) : Len(d.tasks[k].nodes) > 0
-Quiet(hs) == \A n \in hs : LET d == Decide27(n, hs, {}, {}) IN ~Replicates(d) /\ d.del = "none"
-NoTasks(hs) == \A n \in hs : ~Replicates(Decide27(n, hs, {}, {}))
-e\* a check "replicates" when it hands the replicator a task with at least one candidate node. (With overlapping
-\* rules the code as found keeps calling the replicator with an EMPTY candidate list: a holder remembered from
-\* an earlier rule does not lower the shortage of a later rule - a phantom shortage that copies nothing.)
-Replicates(d) == \E k \in 1..Len(d.tasks) : Len(d.tasks[k].nodes) > 0
-Quiet(hs) == \A n \in hs : LET d == Decide27(n, hs, {}, {}) IN ~Replicates(d) /\ d.del = "none"
-NoTasks(hs) == \A n \in hs : ~Replicates(Decide27(n, hs, {}, {}))
- \* a check "replicates" when it hands the replicator a task with at least one candidate node. (With overlapping
-\* rules the code as found keeps calling the replicator with an EMPTY candidate list: a holder remembered from
-\* an earlier rule does not lower the shortage of a later rule - a phantom shortage that copies nothing.)
-Replicates(d) == \E k \in 1..Len(d.tasks) : Len(d.tasks[k].nodes) > 0
-Quiet(hs) == \A n \in hs : LET d == Decide27(n, hs, {}, {}) IN ~Replicates(d) /\ d.del = "none"
-NoTasks(hs) == \A n \in hs : ~Replicates(Decide27(n, hs, {}, {}))
-o\* a check "replicates" when it hands the replicator a task with at least one candidate node. (With overlapping
-\* rules the code as found keeps calling the replicator with an EMPTY candidate list: a holder remembered from
-\* an earlier rule does not lower the shortage of a later rule - a phantom shortage that copies nothing.)
-Replicates(d) == \E k \in 1..Len(d.tasks) : Len(d.tasks[k].nodes) > 0
-Quiet(hs) == \A n \in hs : LET d == Decide27(n, hs, {}, {}) IN ~Replicates(d) /\ d.del = "none"
-NoTasks(hs) == \A n \in hs : ~Replicates(Decide27(n, hs, {}, {}))
-b\* a check "replicates" when it hands the replicator a task with at least one candidate node. (With overlapping
-\* rules the code as found keeps calling the replicator with an EMPTY candidate list: a holder remembered from
-\* an earlier rule does not lower the shortage of a later rule - a phantom shortage that copies nothing.)
-Replicates(d) == \E k \in 1..Len(d.tasks) : Len(d.tasks[k].nodes) > 0
-Quiet(hs) == \A n \in hs : LET d == Decide27(n, hs, {}, {}) IN ~Replicates(d) /\ d.del = "none"
-NoTasks(hs) == \A n \in hs : ~Replicates(Decide27(n, hs, {}, {}))
-j\* a check "replicates" when it hands the replicator a task with at least one candidate node. (With overlapping
-\* rules the code as found keeps calling the replicator with an EMPTY candidate list: a holder remembered from
-\* an earlier rule does not lower the shortage of a later rule - a phantom shortage that copies nothing.)
-Replicates(d) == \E k \in 1..Len(d.tasks) : Len(d.tasks[k].nodes) > 0
-Quiet(hs) == \A n \in hs : LET d == Decide27(n, hs, {}, {}) IN ~Replicates(d) /\ d.del = "none"
-NoTasks(hs) == \A n \in hs : ~Replicates(Decide27(n, hs, {}, {}))
-e\* a check "replicates" when it hands the replicator a task with at least one candidate node. (With overlapping
-\* rules the code as found keeps calling the replicator with an EMPTY candidate list: a holder remembered from
-\* an earlier rule does not lower the shortage of a later rule - a phantom shortage that copies nothing.)
-Replicates(d) == \E k \in 1..Len(d.tasks) : Len(d.tasks[k].nodes) > 0
-Quiet(hs) == \A n \in hs : LET d == Decide27(n, hs, {}, {}) IN ~Replicates(d) /\ d.del = "none"
-NoTasks(hs) == \A n \in hs : ~Replicates(Decide27(n, hs, {}, {}))
-c\* a check "replicates" when it hands the replicator a task with at least one candidate node. (With overlapping
-\* rules the code as found keeps calling the replicator with an EMPTY candidate list: a holder remembered from
-\* an earlier rule does not lower the shortage of a later rule - a phantom shortage that copies nothing.)
-Replicates(d) == \E k \in 1..Len(d.tasks) : Len(d.tasks[k].nodes) > 0
-Quiet(hs) == \A n \in hs : LET d == Decide27(n, hs, {}, {}) IN ~Replicates(d) /\ d.del = "none"
-NoTasks(hs) == \A n \in hs : ~Replicates(Decide27(n, hs, {}, {}))
-t\* a check "replicates" when it hands the replicator a task with at least one candidate node. (With overlapping
-\* rules the code as found keeps calling the replicator with an EMPTY candidate list: a holder remembered from
-\* an earlier rule does not lower the shortage of a later rule - a phantom shortage that copies nothing.)
-Replicates(d) == \E k \in 1..Len(d.tasks) : Len(d.tasks[k].nodes) > 0
-Quiet(hs) == \A n \in hs : LET d == Decide27(n, hs, {}, {}) IN ~Replicates(d) /\ d.del = "none"
-NoTasks(hs) == \A n \in hs : ~Replicates(Decide27(n, hs, {}, {}))
- \* a check "replicates" when it hands the replicator a task with at least one candidate node. (With overlapping
-\* rules the code as found keeps calling the replicator with an EMPTY candidate list: a holder remembered from
-\* an earlier rule does not lower the shortage of a later rule - a phantom shortage that copies nothing.)
-Replicates(d) == \E k \in 1..Len(d.tasks) : Len(d.tasks[k].nodes) > 0
-Quiet(hs) == \A n \in hs : LET d == Decide27(n, hs, {}, {}) IN ~Replicates(d) /\ d.del = "none"
-NoTasks(hs) == \A n \in hs : ~Replicates(Decide27(n, hs, {}, {}))
-(\* a check "replicates" when it hands the replicator a task with at least one candidate node. (With overlapping
-\* rules the code as found keeps calling the replicator with an EMPTY candidate list: a holder remembered from
-\* an earlier rule does not lower the shortage of a later rule - a phantom shortage that copies nothing.)
-Replicates(d) == \E k \in 1..Len(d.tasks) : Len(d.tasks[k].nodes) > 0
-Quiet(hs) == \A n \in hs : LET d == Decide27(n, hs, {}, {}) IN ~Replicates(d) /\ d.del = "none"
-NoTasks(hs) == \A n \in hs : ~Replicates(Decide27(n, hs, {}, {}))
-p\* a check "replicates" when it hands the replicator a task with at least one candidate node. (With overlapping
-\* rules the code as found keeps calling the replicator with an EMPTY candidate list: a holder remembered from
-\* an earlier rule does not lower the shortage of a later rule - a phantom shortage that copies nothing.)
-Replicates(d) == \E k \in 1..Len(d.tasks) : Len(d.tasks[k].nodes) > 0
-Quiet(hs) == \A n \in hs : LET d == Decide27(n, hs, {}, {}) IN ~Replicates(d) /\ d.del = "none"
-NoTasks(hs) == \A n \in hs : ~Replicates(Decide27(n, hs, {}, {}))
-o\* a check "replicates" when it hands the replicator a task with at least one candidate node. (With overlapping
-\* rules the code as found keeps calling the replicator with an EMPTY candidate list: a holder remembered from
-\* an earlier rule does not lower the shortage of a later rule - a phantom shortage that copies nothing.)
-Replicates(d) == \E k \in 1..Len(d.tasks) : Len(d.tasks[k].nodes) > 0
-Quiet(hs) == \A n \in hs : LET d == Decide27(n, hs, {}, {}) IN ~Replicates(d) /\ d.del = "none"
-NoTasks(hs) == \A n \in hs : ~Replicates(Decide27(n, hs, {}, {}))
-s\* a check "replicates" when it hands the replicator a task with at least one candidate node. (With overlapping
-\* rules the code as found keeps calling the replicator with an EMPTY candidate list: a holder remembered from
-\* an earlier rule does not lower the shortage of a later rule - a phantom shortage that copies nothing.)
-Replicates(d) == \E k \in 1..Len(d.tasks) : Len(d.tasks[k].nodes) > 0
-Quiet(hs) == \A n \in hs : LET d == Decide27(n, hs, {}, {}) IN ~Replicates(d) /\ d.del = "none"
-NoTasks(hs) == \A n \in hs : ~Replicates(Decide27(n, hs, {}, {}))
-t\* a check "replicates" when it hands the replicator a task with at least one candidate node. (With overlapping
-\* rules the code as found keeps calling the replicator with an EMPTY candidate list: a holder remembered from
-\* an earlier rule does not lower the shortage of a later rule - a phantom shortage that copies nothing.)
-Replicates(d) == \E k \in 1..Len(d.tasks) : Len(d.tasks[k].nodes) > 0
-Quiet(hs) == \A n \in hs : LET d == Decide27(n, hs, {}, {}) IN ~Replicates(d) /\ d.del = "none"
-NoTasks(hs) == \A n \in hs : ~Replicates(Decide27(n, hs, {}, {}))
--\* a check "replicates" when it hands the replicator a task with at least one candidate node. (With overlapping
-\* rules the code as found keeps calling the replicator with an EMPTY candidate list: a holder remembered from
-\* an earlier rule does not lower the shortage of a later rule - a phantom shortage that copies nothing.)
-Replicates(d) == \E k \in 1..Len(d.tasks) : Len(d.tasks[k].nodes) > 0
-Quiet(hs) == \A n \in hs : LET d == Decide27(n, hs, {}, {}) IN ~Replicates(d) /\ d.del = "none"
-NoTasks(hs) == \A n \in hs : ~Replicates(Decide27(n, hs, {}, {}))
-p\* a check "replicates" when it hands the replicator a task with at least one candidate node. (With overlapping
-\* rules the code as found keeps calling the replicator with an EMPTY candidate list: a holder remembered from
-\* an earlier rule does not lower the shortage of a later rule - a phantom shortage that copies nothing.)
-Replicates(d) == \E k \in 1..Len(d.tasks) : Len(d.tasks[k].nodes) > 0
-Quiet(hs) == \A n \in hs : LET d == Decide27(n, hs, {}, {}) IN ~Replicates(d) /\ d.del = "none"
-NoTasks(hs) == \A n \in hs : ~Replicates(Decide27(n, hs, {}, {}))
-l\* a check "replicates" when it hands the replicator a task with at least one candidate node. (With overlapping
-\* rules the code as found keeps calling the replicator with an EMPTY candidate list: a holder remembered from
-\* an earlier rule does not lower the shortage of a later rule - a phantom shortage that copies nothing.)
-Replicates(d) == \E k \in 1..Len(d.tasks) : Len(d.tasks[k].nodes) > 0
-Quiet(hs) == \A n \in hs : LET d == Decide27(n, hs, {}, {}) IN ~Replicates(d) /\ d.del = "none"
-NoTasks(hs) == \A n \in hs : ~Replicates(Decide27(n, hs, {}, {}))
-a\* a check "replicates" when it hands the replicator a task with at least one candidate node. (With overlapping
-\* rules the code as found keeps calling the replicator with an EMPTY candidate list: a holder remembered from
-\* an earlier rule does not lower the shortage of a later rule - a phantom shortage that copies nothing.)
-Replicates(d) == \E k \in 1..Len(d.tasks) : Len(d.tasks[k].nodes) > 0
-Quiet(hs) == \A n \in hs : LET d == Decide27(n, hs, {}, {}) IN ~Replicates(d) /\ d.del = "none"
-NoTasks(hs) == \A n \in hs : ~Replicates(Decide27(n, hs, {}, {}))
-c\* a check "replicates" when it hands the replicator a task with at least one candidate node. (With overlapping
-\* rules the code as found keeps calling the replicator with an EMPTY candidate list: a holder remembered from
-\* an earlier rule does not lower the shortage of a later rule - a phantom shortage that copies nothing.)
-Replicates(d) == \E k \in 1..Len(d.tasks) : Len(d.tasks[k].nodes) > 0
-Quiet(hs) == \A n \in hs : LET d == Decide27(n, hs, {}, {}) IN ~Replicates(d) /\ d.del = "none"
-NoTasks(hs) == \A n \in hs : ~Replicates(Decide27(n, hs, {}, {}))
-e\* a check "replicates" when it hands the replicator a task with at least one candidate node. (With overlapping
-\* rules the code as found keeps calling the replicator with an EMPTY candidate list: a holder remembered from
-\* an earlier rule does not lower the shortage of a later rule - a phantom shortage that copies nothing.)
-Replicates(d) == \E k \in 1..Len(d.tasks) : Len(d.tasks[k].nodes) > 0
-Quiet(hs) == \A n \in hs : LET d == Decide27(n, hs, {}, {}) IN ~Replicates(d) /\ d.del = "none"
-NoTasks(hs) == \A n \in hs : ~Replicates(Decide27(n, hs, {}, {}))
-m\* a check "replicates" when it hands the replicator a task with at least one candidate node. (With overlapping
-\* rules the code as found keeps calling the replicator with an EMPTY candidate list: a holder remembered from
-\* an earlier rule does not lower the shortage of a later rule - a phantom shortage that copies nothing.)
-Replicates(d) == \E k \in 1..Len(d.tasks) : Len(d.tasks[k].nodes) > 0
-Quiet(hs) == \A n \in hs : LET d == Decide27(n, hs, {}, {}) IN ~Replicates(d) /\ d.del = "none"
-NoTasks(hs) == \A n \in hs : ~Replicates(Decide27(n, hs, {}, {}))
-e\* a check "replicates" when it hands the replicator a task with at least one candidate node. (With overlapping
-\* rules the code as found keeps calling the replicator with an EMPTY candidate list: a holder remembered from
-\* an earlier rule does not lower the shortage of a later rule - a phantom shortage that copies nothing.)
-Replicates(d) == \E k \in 1..Len(d.tasks) : Len(d.tasks[k].nodes) > 0
-Quiet(hs) == \A n \in hs : LET d == Decide27(n, hs, {}, {}) IN ~Replicates(d) /\ d.del = "none"
-NoTasks(hs) == \A n \in hs : ~Replicates(Decide27(n, hs, {}, {}))
-n\* a check "replicates" when it hands the replicator a task with at least one candidate node. (With overlapping
-\* rules the code as found keeps calling the replicator with an EMPTY candidate list: a holder remembered from
-\* an earlier rule does not lower the shortage of a later rule - a phantom shortage that copies nothing.)
-Replicates(d) == \E k \in 1..Len(d.tasks) : Len(d.tasks[k].nodes) > 0
-Quiet(hs) == \A n \in hs : LET d == Decide27(n, hs, {}, {}) IN ~Replicates(d) /\ d.del = "none"
-NoTasks(hs) == \A n \in hs : ~Replicates(Decide27(n, hs, {}, {}))
-t\* a check "replicates" when it hands the replicator a task with at least one candidate node. (With overlapping
-\* rules the code as found keeps calling the replicator with an EMPTY candidate list: a holder remembered from
-\* an earlier rule does not lower the shortage of a later rule - a phantom shortage that copies nothing.)
-Replicates(d) == \E k \in 1..Len(d.tasks) : Len(d.tasks[k].nodes) > 0
-Quiet(hs) == \A n \in hs : LET d == Decide27(n, hs, {}, {}) IN ~Replicates(d) /\ d.del = "none"
-NoTasks(hs) == \A n \in hs : ~Replicates(Decide27(n, hs, {}, {}))
- \* a check "replicates" when it hands the replicator a task with at least one candidate node. (With overlapping
-\* rules the code as found keeps calling the replicator with an EMPTY candidate list: a holder remembered from
-\* an earlier rule does not lower the shortage of a later rule - a phantom shortage that copies nothing.)
-Replicates(d) == \E k \in 1..Len(d.tasks) : Len(d.tasks[k].nodes) > 0
-Quiet(hs) == \A n \in hs : LET d == Decide27(n, hs, {}, {}) IN ~Replicates(d) /\ d.del = "none"
-NoTasks(hs) == \A n \in hs : ~Replicates(Decide27(n, hs, {}, {}))
-r\* a check "replicates" when it hands the replicator a task with at least one candidate node. (With overlapping
-\* rules the code as found keeps calling the replicator with an EMPTY candidate list: a holder remembered from
-\* an earlier rule does not lower the shortage of a later rule - a phantom shortage that copies nothing.)
-Replicates(d) == \E k \in 1..Len(d.tasks) : Len(d.tasks[k].nodes) > 0
-Quiet(hs) == \A n \in hs : LET d == Decide27(n, hs, {}, {}) IN ~Replicates(d) /\ d.del = "none"
-NoTasks(hs) == \A n \in hs : ~Replicates(Decide27(n, hs, {}, {}))
-e\* a check "replicates" when it hands the replicator a task with at least one candidate node. (With overlapping
-\* rules the code as found keeps calling the replicator with an EMPTY candidate list: a holder remembered from
-\* an earlier rule does not lower the shortage of a later rule - a phantom shortage that copies nothing.)
-Replicates(d) == \E k \in 1..Len(d.tasks) : Len(d.tasks[k].nodes) > 0
-Quiet(hs) == \A n \in hs : LET d == Decide27(n, hs, {}, {}) IN ~Replicates(d) /\ d.del = "none"
-NoTasks(hs) == \A n \in hs : ~Replicates(Decide27(n, hs, {}, {}))
-p\* a check "replicates" when it hands the replicator a task with at least one candidate node. (With overlapping
-\* rules the code as found keeps calling the replicator with an EMPTY candidate list: a holder remembered from
-\* an earlier rule does not lower the shortage of a later rule - a phantom shortage that copies nothing.)
-Replicates(d) == \E k \in 1..Len(d.tasks) : Len(d.tasks[k].nodes) > 0
-Quiet(hs) == \A n \in hs : LET d == Decide27(n, hs, {}, {}) IN ~Replicates(d) /\ d.del = "none"
-NoTasks(hs) == \A n \in hs : ~Replicates(Decide27(n, hs, {}, {}))
-l\* a check "replicates" when it hands the replicator a task with at least one candidate node. (With overlapping
-\* rules the code as found keeps calling the replicator with an EMPTY candidate list: a holder remembered from
-\* an earlier rule does not lower the shortage of a later rule - a phantom shortage that copies nothing.)
-Replicates(d) == \E k \in 1..Len(d.tasks) : Len(d.tasks[k].nodes) > 0
-Quiet(hs) == \A n \in hs : LET d == Decide27(n, hs, {}, {}) IN ~Replicates(d) /\ d.del = "none"
-NoTasks(hs) == \A n \in hs : ~Replicates(Decide27(n, hs, {}, {}))
-i\* a check "replicates" when it hands the replicator a task with at least one candidate node. (With overlapping
-\* rules the code as found keeps calling the replicator with an EMPTY candidate list: a holder remembered from
-\* an earlier rule does not lower the shortage of a later rule - a phantom shortage that copies nothing.)
-Replicates(d) == \E k \in 1..Len(d.tasks) : Len(d.tasks[k].nodes) > 0
-Quiet(hs) == \A n \in hs : LET d == Decide27(n, hs, {}, {}) IN ~Replicates(d) /\ d.del = "none"
-NoTasks(hs) == \A n \in hs : ~Replicates(Decide27(n, hs, {}, {}))
-c\* a check "replicates" when it hands the replicator a task with at least one candidate node. (With overlapping
-\* rules the code as found keeps calling the replicator with an EMPTY candidate list: a holder remembered from
-\* an earlier rule does not lower the shortage of a later rule - a phantom shortage that copies nothing.)
-Replicates(d) == \E k \in 1..Len(d.tasks) : Len(d.tasks[k].nodes) > 0
-Quiet(hs) == \A n \in hs : LET d == Decide27(n, hs, {}, {}) IN ~Replicates(d) /\ d.del = "none"
-NoTasks(hs) == \A n \in hs : ~Replicates(Decide27(n, hs, {}, {}))
-a\* a check "replicates" when it hands the replicator a task with at least one candidate node. (With overlapping
-\* rules the code as found keeps calling the replicator with an EMPTY candidate list: a holder remembered from
-\* an earlier rule does not lower the shortage of a later rule - a phantom shortage that copies nothing.)
-Replicates(d) == \E k \in 1..Len(d.tasks) : Len(d.tasks[k].nodes) > 0
-Quiet(hs) == \A n \in hs : LET d == Decide27(n, hs, {}, {}) IN ~Replicates(d) /\ d.del = "none"
-NoTasks(hs) == \A n \in hs : ~Replicates(Decide27(n, hs, {}, {}))
-t\* a check "replicates" when it hands the replicator a task with at least one candidate node. (With overlapping
-\* rules the code as found keeps calling the replicator with an EMPTY candidate list: a holder remembered from
-\* an earlier rule does not lower the shortage of a later rule - a phantom shortage that copies nothing.)
-Replicates(d) == \E k \in 1..Len(d.tasks) : Len(d.tasks[k].nodes) > 0
-Quiet(hs) == \A n \in hs : LET d == Decide27(n, hs, {}, {}) IN ~Replicates(d) /\ d.del = "none"
-NoTasks(hs) == \A n \in hs : ~Replicates(Decide27(n, hs, {}, {}))
-i\* a check "replicates" when it hands the replicator a task with at least one candidate node. (With overlapping
-\* rules the code as found keeps calling the replicator with an EMPTY candidate list: a holder remembered from
-\* an earlier rule does not lower the shortage of a later rule - a phantom shortage that copies nothing.)
-Replicates(d) == \E k \in 1..Len(d.tasks) : Len(d.tasks[k].nodes) > 0
-Quiet(hs) == \A n \in hs : LET d == Decide27(n, hs, {}, {}) IN ~Replicates(d) /\ d.del = "none"
-NoTasks(hs) == \A n \in hs : ~Replicates(Decide27(n, hs, {}, {}))
-o\* a check "replicates" when it hands the replicator a task with at least one candidate node. (With overlapping
-\* rules the code as found keeps calling the replicator with an EMPTY candidate list: a holder remembered from
-\* an earlier rule does not lower the shortage of a later rule - a phantom shortage that copies nothing.)
-Replicates(d) == \E k \in 1..Len(d.tasks) : Len(d.tasks[k].nodes) > 0
-Quiet(hs) == \A n \in hs : LET d == Decide27(n, hs, {}, {}) IN ~Replicates(d) /\ d.del = "none"
-NoTasks(hs) == \A n \in hs : ~Replicates(Decide27(n, hs, {}, {}))
-n\* a check "replicates" when it hands the replicator a task with at least one candidate node. (With overlapping
-\* rules the code as found keeps calling the replicator with an EMPTY candidate list: a holder remembered from
-\* an earlier rule does not lower the shortage of a later rule - a phantom shortage that copies nothing.)
-Replicates(d) == \E k \in 1..Len(d.tasks) : Len(d.tasks[k].nodes) > 0
-Quiet(hs) == \A n \in hs : LET d == Decide27(n, hs, {}, {}) IN ~Replicates(d) /\ d.del = "none"
-NoTasks(hs) == \A n \in hs : ~Replicates(Decide27(n, hs, {}, {}))
-,\* a check "replicates" when it hands the replicator a task with at least one candidate node. (With overlapping
-\* rules the code as found keeps calling the replicator with an EMPTY candidate list: a holder remembered from
-\* an earlier rule does not lower the shortage of a later rule - a phantom shortage that copies nothing.)
-Replicates(d) == \E k \in 1..Len(d.tasks) : Len(d.tasks[k].nodes) > 0
-Quiet(hs) == \A n \in hs : LET d == Decide27(n, hs, {}, {}) IN ~Replicates(d) /\ d.del = "none"
-NoTasks(hs) == \A n \in hs : ~Replicates(Decide27(n, hs, {}, {}))
- \* a check "replicates" when it hands the replicator a task with at least one candidate node. (With overlapping
-\* rules the code as found keeps calling the replicator with an EMPTY candidate list: a holder remembered from
-\* an earlier rule does not lower the shortage of a later rule - a phantom shortage that copies nothing.)
-Replicates(d) == \E k \in 1..Len(d.tasks) : Len(d.tasks[k].nodes) > 0
-Quiet(hs) == \A n \in hs : LET d == Decide27(n, hs, {}, {}) IN ~Replicates(d) /\ d.del = "none"
-NoTasks(hs) == \A n \in hs : ~Replicates(Decide27(n, hs, {}, {}))
-r\* a check "replicates" when it hands the replicator a task with at least one candidate node. (With overlapping
-\* rules the code as found keeps calling the replicator with an EMPTY candidate list: a holder remembered from
-\* an earlier rule does not lower the shortage of a later rule - a phantom shortage that copies nothing.)
-Replicates(d) == \E k \in 1..Len(d.tasks) : Len(d.tasks[k].nodes) > 0
-Quiet(hs) == \A n \in hs : LET d == Decide27(n, hs, {}, {}) IN ~Replicates(d) /\ d.del = "none"
-NoTasks(hs) == \A n \in hs : ~Replicates(Decide27(n, hs, {}, {}))
-e\* a check "replicates" when it hands the replicator a task with at least one candidate node. (With overlapping
-\* rules the code as found keeps calling the replicator with an EMPTY candidate list: a holder remembered from
-\* an earlier rule does not lower the shortage of a later rule - a phantom shortage that copies nothing.)
-Replicates(d) == \E k \in 1..Len(d.tasks) : Len(d.tasks[k].nodes) > 0
-Quiet(hs) == \A n \in hs : LET d == Decide27(n, hs, {}, {}) IN ~Replicates(d) /\ d.del = "none"
-NoTasks(hs) == \A n \in hs : ~Replicates(Decide27(n, hs, {}, {}))
--\* a check "replicates" when it hands the replicator a task with at least one candidate node. (With overlapping
-\* rules the code as found keeps calling the replicator with an EMPTY candidate list: a holder remembered from
-\* an earlier rule does not lower the shortage of a later rule - a phantom shortage that copies nothing.)
-Replicates(d) == \E k \in 1..Len(d.tasks) : Len(d.tasks[k].nodes) > 0
-Quiet(hs) == \A n \in hs : LET d == Decide27(n, hs, {}, {}) IN ~Replicates(d) /\ d.del = "none"
-NoTasks(hs) == \A n \in hs : ~Replicates(Decide27(n, hs, {}, {}))
-c\* a check "replicates" when it hands the replicator a task with at least one candidate node. (With overlapping
-\* rules the code as found keeps calling the replicator with an EMPTY candidate list: a holder remembered from
-\* an earlier rule does not lower the shortage of a later rule - a phantom shortage that copies nothing.)
-Replicates(d) == \E k \in 1..Len(d.tasks) : Len(d.tasks[k].nodes) > 0
-Quiet(hs) == \A n \in hs : LET d == Decide27(n, hs, {}, {}) IN ~Replicates(d) /\ d.del = "none"
-NoTasks(hs) == \A n \in hs : ~Replicates(Decide27(n, hs, {}, {}))
-r\* a check "replicates" when it hands the replicator a task with at least one candidate node. (With overlapping
-\* rules the code as found keeps calling the replicator with an EMPTY candidate list: a holder remembered from
-\* an earlier rule does not lower the shortage of a later rule - a phantom shortage that copies nothing.)
-Replicates(d) == \E k \in 1..Len(d.tasks) : Len(d.tasks[k].nodes) > 0
-Quiet(hs) == \A n \in hs : LET d == Decide27(n, hs, {}, {}) IN ~Replicates(d) /\ d.del = "none"
-NoTasks(hs) == \A n \in hs : ~Replicates(Decide27(n, hs, {}, {}))
-e\* a check "replicates" when it hands the replicator a task with at least one candidate node. (With overlapping
-\* rules the code as found keeps calling the replicator with an EMPTY candidate list: a holder remembered from
-\* an earlier rule does not lower the shortage of a later rule - a phantom shortage that copies nothing.)
-Replicates(d) == \E k \in 1..Len(d.tasks) : Len(d.tasks[k].nodes) > 0
-Quiet(hs) == \A n \in hs : LET d == Decide27(n, hs, {}, {}) IN ~Replicates(d) /\ d.del = "none"
-NoTasks(hs) == \A n \in hs : ~Replicates(Decide27(n, hs, {}, {}))
-a\* a check "replicates" when it hands the replicator a task with at least one candidate node. (With overlapping
-\* rules the code as found keeps calling the replicator with an EMPTY candidate list: a holder remembered from
-\* an earlier rule does not lower the shortage of a later rule - a phantom shortage that copies nothing.)
-Replicates(d) == \E k \in 1..Len(d.tasks) : Len(d.tasks[k].nodes) > 0
-Quiet(hs) == \A n \in hs : LET d == Decide27(n, hs, {}, {}) IN ~Replicates(d) /\ d.del = "none"
-NoTasks(hs) == \A n \in hs : ~Replicates(Decide27(n, hs, {}, {}))
-t\* a check "replicates" when it hands the replicator a task with at least one candidate node. (With overlapping
-\* rules the code as found keeps calling the replicator with an EMPTY candidate list: a holder remembered from
-\* an earlier rule does not lower the shortage of a later rule - a phantom shortage that copies nothing.)
-Replicates(d) == \E k \in 1..Len(d.tasks) : Len(d.tasks[k].nodes) > 0
-Quiet(hs) == \A n \in hs : LET d == Decide27(n, hs, {}, {}) IN ~Replicates(d) /\ d.del = "none"
-NoTasks(hs) == \A n \in hs : ~Replicates(Decide27(n, hs, {}, {}))
-e\* a check "replicates" when it hands the replicator a task with at least one candidate node. (With overlapping
-\* rules the code as found keeps calling the replicator with an EMPTY candidate list: a holder remembered from
-\* an earlier rule does not lower the shortage of a later rule - a phantom shortage that copies nothing.)
-Replicates(d) == \E k \in 1..Len(d.tasks) : Len(d.tasks[k].nodes) > 0
-Quiet(hs) == \A n \in hs : LET d == Decide27(n, hs, {}, {}) IN ~Replicates(d) /\ d.del = "none"
-NoTasks(hs) == \A n \in hs : ~Replicates(Decide27(n, hs, {}, {}))
-d\* a check "replicates" when it hands the replicator a task with at least one candidate node. (With overlapping
-\* rules the code as found keeps calling the replicator with an EMPTY candidate list: a holder remembered from
-\* an earlier rule does not lower the shortage of a later rule - a phantom shortage that copies nothing.)
-Replicates(d) == \E k \in 1..Len(d.tasks) : Len(d.tasks[k].nodes) > 0
-Quiet(hs) == \A n \in hs : LET d == Decide27(n, hs, {}, {}) IN ~Replicates(d) /\ d.del = "none"
-NoTasks(hs) == \A n \in hs : ~Replicates(Decide27(n, hs, {}, {}))
- \* a check "replicates" when it hands the replicator a task with at least one candidate node. (With overlapping
-\* rules the code as found keeps calling the replicator with an EMPTY candidate list: a holder remembered from
-\* an earlier rule does not lower the shortage of a later rule - a phantom shortage that copies nothing.)
-Replicates(d) == \E k \in 1..Len(d.tasks) : Len(d.tasks[k].nodes) > 0
-Quiet(hs) == \A n \in hs : LET d == Decide27(n, hs, {}, {}) IN ~Replicates(d) /\ d.del = "none"
-NoTasks(hs) == \A n \in hs : ~Replicates(Decide27(n, hs, {}, {}))
-E\* a check "replicates" when it hands the replicator a task with at least one candidate node. (With overlapping
-\* rules the code as found keeps calling the replicator with an EMPTY candidate list: a holder remembered from
-\* an earlier rule does not lower the shortage of a later rule - a phantom shortage that copies nothing.)
-Replicates(d) == \E k \in 1..Len(d.tasks) : Len(d.tasks[k].nodes) > 0
-Quiet(hs) == \A n \in hs : LET d == Decide27(n, hs, {}, {}) IN ~Replicates(d) /\ d.del = "none"
-NoTasks(hs) == \A n \in hs : ~Replicates(Decide27(n, hs, {}, {}))
-C\* a check "replicates" when it hands the replicator a task with at least one candidate node. (With overlapping
-\* rules the code as found keeps calling the replicator with an EMPTY candidate list: a holder remembered from
-\* an earlier rule does not lower the shortage of a later rule - a phantom shortage that copies nothing.)
-Replicates(d) == \E k \in 1..Len(d.tasks) : Len(d.tasks[k].nodes) > 0
-Quiet(hs) == \A n \in hs : LET d == Decide27(n, hs, {}, {}) IN ~Replicates(d) /\ d.del = "none"
-NoTasks(hs) == \A n \in hs : ~Replicates(Decide27(n, hs, {}, {}))
- \* a check "replicates" when it hands the replicator a task with at least one candidate node. (With overlapping
-\* rules the code as found keeps calling the replicator with an EMPTY candidate list: a holder remembered from
-\* an earlier rule does not lower the shortage of a later rule - a phantom shortage that copies nothing.)
-Replicates(d) == \E k \in 1..Len(d.tasks) : Len(d.tasks[k].nodes) > 0
-Quiet(hs) == \A n \in hs : LET d == Decide27(n, hs, {}, {}) IN ~Replicates(d) /\ d.del = "none"
-NoTasks(hs) == \A n \in hs : ~Replicates(Decide27(n, hs, {}, {}))
-p\* a check "replicates" when it hands the replicator a task with at least one candidate node. (With overlapping
-\* rules the code as found keeps calling the replicator with an EMPTY candidate list: a holder remembered from
-\* an earlier rule does not lower the shortage of a later rule - a phantom shortage that copies nothing.)
-Replicates(d) == \E k \in 1..Len(d.tasks) : Len(d.tasks[k].nodes) > 0
-Quiet(hs) == \A n \in hs : LET d == Decide27(n, hs, {}, {}) IN ~Replicates(d) /\ d.del = "none"
-NoTasks(hs) == \A n \in hs : ~Replicates(Decide27(n, hs, {}, {}))
-a\* a check "replicates" when it hands the replicator a task with at least one candidate node. (With overlapping
-\* rules the code as found keeps calling the replicator with an EMPTY candidate list: a holder remembered from
-\* an earlier rule does not lower the shortage of a later rule - a phantom shortage that copies nothing.)
-Replicates(d) == \E k \in 1..Len(d.tasks) : Len(d.tasks[k].nodes) > 0
-Quiet(hs) == \A n \in hs : LET d == Decide27(n, hs, {}, {}) IN ~Replicates(d) /\ d.del = "none"
-NoTasks(hs) == \A n \in hs : ~Replicates(Decide27(n, hs, {}, {}))
-r\* a check "replicates" when it hands the replicator a task with at least one candidate node. (With overlapping
-\* rules the code as found keeps calling the replicator with an EMPTY candidate list: a holder remembered from
-\* an earlier rule does not lower the shortage of a later rule - a phantom shortage that copies nothing.)
-Replicates(d) == \E k \in 1..Len(d.tasks) : Len(d.tasks[k].nodes) > 0
-Quiet(hs) == \A n \in hs : LET d == Decide27(n, hs, {}, {}) IN ~Replicates(d) /\ d.del = "none"
-NoTasks(hs) == \A n \in hs : ~Replicates(Decide27(n, hs, {}, {}))
-t\* a check "replicates" when it hands the replicator a task with at least one candidate node. (With overlapping
-\* rules the code as found keeps calling the replicator with an EMPTY candidate list: a holder remembered from
-\* an earlier rule does not lower the shortage of a later rule - a phantom shortage that copies nothing.)
-Replicates(d) == \E k \in 1..Len(d.tasks) : Len(d.tasks[k].nodes) > 0
-Quiet(hs) == \A n \in hs : LET d == Decide27(n, hs, {}, {}) IN ~Replicates(d) /\ d.del = "none"
-NoTasks(hs) == \A n \in hs : ~Replicates(Decide27(n, hs, {}, {}))
-)\* a check "replicates" when it hands the replicator a task with at least one candidate node. (With overlapping
-\* rules the code as found keeps calling the replicator with an EMPTY candidate list: a holder remembered from
-\* an earlier rule does not lower the shortage of a later rule - a phantom shortage that copies nothing.)
-Replicates(d) == \E k \in 1..Len(d.tasks) : Len(d.tasks[k].nodes) > 0
-Quiet(hs) == \A n \in hs : LET d == Decide27(n, hs, {}, {}) IN ~Replicates(d) /\ d.del = "none"
-NoTasks(hs) == \A n \in hs : ~Replicates(Decide27(n, hs, {}, {}))
-:\* a check "replicates" when it hands the replicator a task with at least one candidate node. (With overlapping
-\* rules the code as found keeps calling the replicator with an EMPTY candidate list: a holder remembered from
-\* an earlier rule does not lower the shortage of a later rule - a phantom shortage that copies nothing.)
-Replicates(d) == \E k \in 1..Len(d.tasks) : Len(d.tasks[k].nodes) > 0
-Quiet(hs) == \A n \in hs : LET d == Decide27(n, hs, {}, {}) IN ~Replicates(d) /\ d.del = "none"
-NoTasks(hs) == \A n \in hs : ~Replicates(Decide27(n, hs, {}, {}))
- \* a check "replicates" when it hands the replicator a task with at least one candidate node. (With overlapping
-\* rules the code as found keeps calling the replicator with an EMPTY candidate list: a holder remembered from
-\* an earlier rule does not lower the shortage of a later rule - a phantom shortage that copies nothing.)
-Replicates(d) == \E k \in 1..Len(d.tasks) : Len(d.tasks[k].nodes) > 0
-Quiet(hs) == \A n \in hs : LET d == Decide27(n, hs, {}, {}) IN ~Replicates(d) /\ d.del = "none"
-NoTasks(hs) == \A n \in hs : ~Replicates(Decide27(n, hs, {}, {}))
-t\* a check "replicates" when it hands the replicator a task with at least one candidate node. (With overlapping
-\* rules the code as found keeps calling the replicator with an EMPTY candidate list: a holder remembered from
-\* an earlier rule does not lower the shortage of a later rule - a phantom shortage that copies nothing.)
-Replicates(d) == \E k \in 1..Len(d.tasks) : Len(d.tasks[k].nodes) > 0
-Quiet(hs) == \A n \in hs : LET d == Decide27(n, hs, {}, {}) IN ~Replicates(d) /\ d.del = "none"
-NoTasks(hs) == \A n \in hs : ~Replicates(Decide27(n, hs, {}, {}))
-h\* a check "replicates" when it hands the replicator a task with at least one candidate node. (With overlapping
-\* rules the code as found keeps calling the replicator with an EMPTY candidate list: a holder remembered from
-\* an earlier rule does not lower the shortage of a later rule - a phantom shortage that copies nothing.)
-Replicates(d) == \E k \in 1..Len(d.tasks) : Len(d.tasks[k].nodes) > 0
-Quiet(hs) == \A n \in hs : LET d == Decide27(n, hs, {}, {}) IN ~Replicates(d) /\ d.del = "none"
-NoTasks(hs) == \A n \in hs : ~Replicates(Decide27(n, hs, {}, {}))
-e\* a check "replicates" when it hands the replicator a task with at least one candidate node. (With overlapping
-\* rules the code as found keeps calling the replicator with an EMPTY candidate list: a holder remembered from
-\* an earlier rule does not lower the shortage of a later rule - a phantom shortage that copies nothing.)
-Replicates(d) == \E k \in 1..Len(d.tasks) : Len(d.tasks[k].nodes) > 0
-Quiet(hs) == \A n \in hs : LET d == Decide27(n, hs, {}, {}) IN ~Replicates(d) /\ d.del = "none"
-NoTasks(hs) == \A n \in hs : ~Replicates(Decide27(n, hs, {}, {}))
- \* a check "replicates" when it hands the replicator a task with at least one candidate node. (With overlapping
-\* rules the code as found keeps calling the replicator with an EMPTY candidate list: a holder remembered from
-\* an earlier rule does not lower the shortage of a later rule - a phantom shortage that copies nothing.)
-Replicates(d) == \E k \in 1..Len(d.tasks) : Len(d.tasks[k].nodes) > 0
-Quiet(hs) == \A n \in hs : LET d == Decide27(n, hs, {}, {}) IN ~Replicates(d) /\ d.del = "none"
-NoTasks(hs) == \A n \in hs : ~Replicates(Decide27(n, hs, {}, {}))
-r\* a check "replicates" when it hands the replicator a task with at least one candidate node. (With overlapping
-\* rules the code as found keeps calling the replicator with an EMPTY candidate list: a holder remembered from
-\* an earlier rule does not lower the shortage of a later rule - a phantom shortage that copies nothing.)
-Replicates(d) == \E k \in 1..Len(d.tasks) : Len(d.tasks[k].nodes) > 0
-Quiet(hs) == \A n \in hs : LET d == Decide27(n, hs, {}, {}) IN ~Replicates(d) /\ d.del = "none"
-NoTasks(hs) == \A n \in hs : ~Replicates(Decide27(n, hs, {}, {}))
-e\* a check "replicates" when it hands the replicator a task with at least one candidate node. (With overlapping
-\* rules the code as found keeps calling the replicator with an EMPTY candidate list: a holder remembered from
-\* an earlier rule does not lower the shortage of a later rule - a phantom shortage that copies nothing.)
-Replicates(d) == \E k \in 1..Len(d.tasks) : Len(d.tasks[k].nodes) > 0
-Quiet(hs) == \A n \in hs : LET d == Decide27(n, hs, {}, {}) IN ~Replicates(d) /\ d.del = "none"
-NoTasks(hs) == \A n \in hs : ~Replicates(Decide27(n, hs, {}, {}))
-p\* a check "replicates" when it hands the replicator a task with at least one candidate node. (With overlapping
-\* rules the code as found keeps calling the replicator with an EMPTY candidate list: a holder remembered from
-\* an earlier rule does not lower the shortage of a later rule - a phantom shortage that copies nothing.)
-Replicates(d) == \E k \in 1..Len(d.tasks) : Len(d.tasks[k].nodes) > 0
-Quiet(hs) == \A n \in hs : LET d == Decide27(n, hs, {}, {}) IN ~Replicates(d) /\ d.del = "none"
-NoTasks(hs) == \A n \in hs : ~Replicates(Decide27(n, hs, {}, {}))
-l\* a check "replicates" when it hands the replicator a task with at least one candidate node. (With overlapping
-\* rules the code as found keeps calling the replicator with an EMPTY candidate list: a holder remembered from
-\* an earlier rule does not lower the shortage of a later rule - a phantom shortage that copies nothing.)
-Replicates(d) == \E k \in 1..Len(d.tasks) : Len(d.tasks[k].nodes) > 0
-Quiet(hs) == \A n \in hs : LET d == Decide27(n, hs, {}, {}) IN ~Replicates(d) /\ d.del = "none"
-NoTasks(hs) == \A n \in hs : ~Replicates(Decide27(n, hs, {}, {}))
-i\* a check "replicates" when it hands the replicator a task with at least one candidate node. (With overlapping
-\* rules the code as found keeps calling the replicator with an EMPTY candidate list: a holder remembered from
-\* an earlier rule does not lower the shortage of a later rule - a phantom shortage that copies nothing.)
-Replicates(d) == \E k \in 1..Len(d.tasks) : Len(d.tasks[k].nodes) > 0
-Quiet(hs) == \A n \in hs : LET d == Decide27(n, hs, {}, {}) IN ~Replicates(d) /\ d.del = "none"
-NoTasks(hs) == \A n \in hs : ~Replicates(Decide27(n, hs, {}, {}))
-c\* a check "replicates" when it hands the replicator a task with at least one candidate node. (With overlapping
-\* rules the code as found keeps calling the replicator with an EMPTY candidate list: a holder remembered from
-\* an earlier rule does not lower the shortage of a later rule - a phantom shortage that copies nothing.)
-Replicates(d) == \E k \in 1..Len(d.tasks) : Len(d.tasks[k].nodes) > 0
-Quiet(hs) == \A n \in hs : LET d == Decide27(n, hs, {}, {}) IN ~Replicates(d) /\ d.del = "none"
-NoTasks(hs) == \A n \in hs : ~Replicates(Decide27(n, hs, {}, {}))
-a\* a check "replicates" when it hands the replicator a task with at least one candidate node. (With overlapping
-\* rules the code as found keeps calling the replicator with an EMPTY candidate list: a holder remembered from
-\* an earlier rule does not lower the shortage of a later rule - a phantom shortage that copies nothing.)
-Replicates(d) == \E k \in 1..Len(d.tasks) : Len(d.tasks[k].nodes) > 0
-Quiet(hs) == \A n \in hs : LET d == Decide27(n, hs, {}, {}) IN ~Replicates(d) /\ d.del = "none"
-NoTasks(hs) == \A n \in hs : ~Replicates(Decide27(n, hs, {}, {}))
-t\* a check "replicates" when it hands the replicator a task with at least one candidate node. (With overlapping
-\* rules the code as found keeps calling the replicator with an EMPTY candidate list: a holder remembered from
-\* an earlier rule does not lower the shortage of a later rule - a phantom shortage that copies nothing.)
-Replicates(d) == \E k \in 1..Len(d.tasks) : Len(d.tasks[k].nodes) > 0
-Quiet(hs) == \A n \in hs : LET d == Decide27(n, hs, {}, {}) IN ~Replicates(d) /\ d.del = "none"
-NoTasks(hs) == \A n \in hs : ~Replicates(Decide27(n, hs, {}, {}))
-o\* a check "replicates" when it hands the replicator a task with at least one candidate node. (With overlapping
-\* rules the code as found keeps calling the replicator with an EMPTY candidate list: a holder remembered from
-\* an earlier rule does not lower the shortage of a later rule - a phantom shortage that copies nothing.)
-Replicates(d) == \E k \in 1..Len(d.tasks) : Len(d.tasks[k].nodes) > 0
-Quiet(hs) == \A n \in hs : LET d == Decide27(n, hs, {}, {}) IN ~Replicates(d) /\ d.del = "none"
-NoTasks(hs) == \A n \in hs : ~Replicates(Decide27(n, hs, {}, {}))
-r\* a check "replicates" when it hands the replicator a task with at least one candidate node. (With overlapping
-\* rules the code as found keeps calling the replicator with an EMPTY candidate list: a holder remembered from
-\* an earlier rule does not lower the shortage of a later rule - a phantom shortage that copies nothing.)
-Replicates(d) == \E k \in 1..Len(d.tasks) : Len(d.tasks[k].nodes) > 0
-Quiet(hs) == \A n \in hs : LET d == Decide27(n, hs, {}, {}) IN ~Replicates(d) /\ d.del = "none"
-NoTasks(hs) == \A n \in hs : ~Replicates(Decide27(n, hs, {}, {}))
- \* a check "replicates" when it hands the replicator a task with at least one candidate node. (With overlapping
-\* rules the code as found keeps calling the replicator with an EMPTY candidate list: a holder remembered from
-\* an earlier rule does not lower the shortage of a later rule - a phantom shortage that copies nothing.)
-Replicates(d) == \E k \in 1..Len(d.tasks) : Len(d.tasks[k].nodes) > 0
-Quiet(hs) == \A n \in hs : LET d == Decide27(n, hs, {}, {}) IN ~Replicates(d) /\ d.del = "none"
-NoTasks(hs) == \A n \in hs : ~Replicates(Decide27(n, hs, {}, {}))
-o\* a check "replicates" when it hands the replicator a task with at least one candidate node. (With overlapping
-\* rules the code as found keeps calling the replicator with an EMPTY candidate list: a holder remembered from
-\* an earlier rule does not lower the shortage of a later rule - a phantom shortage that copies nothing.)
-Replicates(d) == \E k \in 1..Len(d.tasks) : Len(d.tasks[k].nodes) > 0
-Quiet(hs) == \A n \in hs : LET d == Decide27(n, hs, {}, {}) IN ~Replicates(d) /\ d.del = "none"
-NoTasks(hs) == \A n \in hs : ~Replicates(Decide27(n, hs, {}, {}))
-f\* a check "replicates" when it hands the replicator a task with at least one candidate node. (With overlapping
-\* rules the code as found keeps calling the replicator with an EMPTY candidate list: a holder remembered from
-\* an earlier rule does not lower the shortage of a later rule - a phantom shortage that copies nothing.)
-Replicates(d) == \E k \in 1..Len(d.tasks) : Len(d.tasks[k].nodes) > 0
-Quiet(hs) == \A n \in hs : LET d == Decide27(n, hs, {}, {}) IN ~Replicates(d) /\ d.del = "none"
-NoTasks(hs) == \A n \in hs : ~Replicates(Decide27(n, hs, {}, {}))
-
-\* a check "replicates" when it hands the replicator a task with at least one candidate node. (With overlapping
-\* rules the code as found keeps calling the replicator with an EMPTY candidate list: a holder remembered from
-\* an earlier rule does not lower the shortage of a later rule - a phantom shortage that copies nothing.)
-Replicates(d) == \E k \in 1..Len(d.tasks) : Len(d.tasks[k].nodes) > 0
-Quiet(hs) == \A n \in hs : LET d == Decide27(n, hs, {}, {}) IN ~Replicates(d) /\ d.del = "none"
-NoTasks(hs) == \A n \in hs : ~Replicates(Decide27(n, hs, {}, {}))
-\\* a check "replicates" when it hands the replicator a task with at least one candidate node. (With overlapping
-\* rules the code as found keeps calling the replicator with an EMPTY candidate list: a holder remembered from
-\* an earlier rule does not lower the shortage of a later rule - a phantom shortage that copies nothing.)
-Replicates(d) == \E k \in 1..Len(d.tasks) : Len(d.tasks[k].nodes) > 0
-Quiet(hs) == \A n \in hs : LET d == Decide27(n, hs, {}, {}) IN ~Replicates(d) /\ d.del = "none"
-NoTasks(hs) == \A n \in hs : ~Replicates(Decide27(n, hs, {}, {}))
-*\* a check "replicates" when it hands the replicator a task with at least one candidate node. (With overlapping
-\* rules the code as found keeps calling the replicator with an EMPTY candidate list: a holder remembered from
-\* an earlier rule does not lower the shortage of a later rule - a phantom shortage that copies nothing.)
-Replicates(d) == \E k \in 1..Len(d.tasks) : Len(d.tasks[k].nodes) > 0
-Quiet(hs) == \A n \in hs : LET d == Decide27(n, hs, {}, {}) IN ~Replicates(d) /\ d.del = "none"
-NoTasks(hs) == \A n \in hs : ~Replicates(Decide27(n, hs, {}, {}))
- \* a check "replicates" when it hands the replicator a task with at least one candidate node. (With overlapping
-\* rules the code as found keeps calling the replicator with an EMPTY candidate list: a holder remembered from
-\* an earlier rule does not lower the shortage of a later rule - a phantom shortage that copies nothing.)
-Replicates(d) == \E k \in 1..Len(d.tasks) : Len(d.tasks[k].nodes) > 0
-Quiet(hs) == \A n \in hs : LET d == Decide27(n, hs, {}, {}) IN ~Replicates(d) /\ d.del = "none"
-NoTasks(hs) == \A n \in hs : ~Replicates(Decide27(n, hs, {}, {}))
-n\* a check "replicates" when it hands the replicator a task with at least one candidate node. (With overlapping
-\* rules the code as found keeps calling the replicator with an EMPTY candidate list: a holder remembered from
-\* an earlier rule does not lower the shortage of a later rule - a phantom shortage that copies nothing.)
-Replicates(d) == \E k \in 1..Len(d.tasks) : Len(d.tasks[k].nodes) > 0
-Quiet(hs) == \A n \in hs : LET d == Decide27(n, hs, {}, {}) IN ~Replicates(d) /\ d.del = "none"
-NoTasks(hs) == \A n \in hs : ~Replicates(Decide27(n, hs, {}, {}))
-o\* a check "replicates" when it hands the replicator a task with at least one candidate node. (With overlapping
-\* rules the code as found keeps calling the replicator with an EMPTY candidate list: a holder remembered from
-\* an earlier rule does not lower the shortage of a later rule - a phantom shortage that copies nothing.)
-Replicates(d) == \E k \in 1..Len(d.tasks) : Len(d.tasks[k].nodes) > 0
-Quiet(hs) == \A n \in hs : LET d == Decide27(n, hs, {}, {}) IN ~Replicates(d) /\ d.del = "none"
-NoTasks(hs) == \A n \in hs : ~Replicates(Decide27(n, hs, {}, {}))
-d\* a check "replicates" when it hands the replicator a task with at least one candidate node. (With overlapping
-\* rules the code as found keeps calling the replicator with an EMPTY candidate list: a holder remembered from
-\* an earlier rule does not lower the shortage of a later rule - a phantom shortage that copies nothing.)
-Replicates(d) == \E k \in 1..Len(d.tasks) : Len(d.tasks[k].nodes) > 0
-Quiet(hs) == \A n \in hs : LET d == Decide27(n, hs, {}, {}) IN ~Replicates(d) /\ d.del = "none"
-NoTasks(hs) == \A n \in hs : ~Replicates(Decide27(n, hs, {}, {}))
-e\* a check "replicates" when it hands the replicator a task with at least one candidate node. (With overlapping
-\* rules the code as found keeps calling the replicator with an EMPTY candidate list: a holder remembered from
-\* an earlier rule does not lower the shortage of a later rule - a phantom shortage that copies nothing.)
-Replicates(d) == \E k \in 1..Len(d.tasks) : Len(d.tasks[k].nodes) > 0
-Quiet(hs) == \A n \in hs : LET d == Decide27(n, hs, {}, {}) IN ~Replicates(d) /\ d.del = "none"
-NoTasks(hs) == \A n \in hs : ~Replicates(Decide27(n, hs, {}, {}))
- \* a check "replicates" when it hands the replicator a task with at least one candidate node. (With overlapping
-\* rules the code as found keeps calling the replicator with an EMPTY candidate list: a holder remembered from
-\* an earlier rule does not lower the shortage of a later rule - a phantom shortage that copies nothing.)
-Replicates(d) == \E k \in 1..Len(d.tasks) : Len(d.tasks[k].nodes) > 0
-Quiet(hs) == \A n \in hs : LET d == Decide27(n, hs, {}, {}) IN ~Replicates(d) /\ d.del = "none"
-NoTasks(hs) == \A n \in hs : ~Replicates(Decide27(n, hs, {}, {}))
-n\* a check "replicates" when it hands the replicator a task with at least one candidate node. (With overlapping
-\* rules the code as found keeps calling the replicator with an EMPTY candidate list: a holder remembered from
-\* an earlier rule does not lower the shortage of a later rule - a phantom shortage that copies nothing.)
-Replicates(d) == \E k \in 1..Len(d.tasks) : Len(d.tasks[k].nodes) > 0
-Quiet(hs) == \A n \in hs : LET d == Decide27(n, hs, {}, {}) IN ~Replicates(d) /\ d.del = "none"
-NoTasks(hs) == \A n \in hs : ~Replicates(Decide27(n, hs, {}, {}))
- \* a check "replicates" when it hands the replicator a task with at least one candidate node. (With overlapping
-\* rules the code as found keeps calling the replicator with an EMPTY candidate list: a holder remembered from
-\* an earlier rule does not lower the shortage of a later rule - a phantom shortage that copies nothing.)
-Replicates(d) == \E k \in 1..Len(d.tasks) : Len(d.tasks[k].nodes) > 0
-Quiet(hs) == \A n \in hs : LET d == Decide27(n, hs, {}, {}) IN ~Replicates(d) /\ d.del = "none"
-NoTasks(hs) == \A n \in hs : ~Replicates(Decide27(n, hs, {}, {}))
-w\* a check "replicates" when it hands the replicator a task with at least one candidate node. (With overlapping
-\* rules the code as found keeps calling the replicator with an EMPTY candidate list: a holder remembered from
-\* an earlier rule does not lower the shortage of a later rule - a phantom shortage that copies nothing.)
-Replicates(d) == \E k \in 1..Len(d.tasks) : Len(d.tasks[k].nodes) > 0
-Quiet(hs) == \A n \in hs : LET d == Decide27(n, hs, {}, {}) IN ~Replicates(d) /\ d.del = "none"
-NoTasks(hs) == \A n \in hs : ~Replicates(Decide27(n, hs, {}, {}))
-o\* a check "replicates" when it hands the replicator a task with at least one candidate node. (With overlapping
-\* rules the code as found keeps calling the replicator with an EMPTY candidate list: a holder remembered from
-\* an earlier rule does not lower the shortage of a later rule - a phantom shortage that copies nothing.)
-Replicates(d) == \E k \in 1..Len(d.tasks) : Len(d.tasks[k].nodes) > 0
-Quiet(hs) == \A n \in hs : LET d == Decide27(n, hs, {}, {}) IN ~Replicates(d) /\ d.del = "none"
-NoTasks(hs) == \A n \in hs : ~Replicates(Decide27(n, hs, {}, {}))
-r\* a check "replicates" when it hands the replicator a task with at least one candidate node. (With overlapping
-\* rules the code as found keeps calling the replicator with an EMPTY candidate list: a holder remembered from
-\* an earlier rule does not lower the shortage of a later rule - a phantom shortage that copies nothing.)
-Replicates(d) == \E k \in 1..Len(d.tasks) : Len(d.tasks[k].nodes) > 0
-Quiet(hs) == \A n \in hs : LET d == Decide27(n, hs, {}, {}) IN ~Replicates(d) /\ d.del = "none"
-NoTasks(hs) == \A n \in hs : ~Replicates(Decide27(n, hs, {}, {}))
-k\* a check "replicates" when it hands the replicator a task with at least one candidate node. (With overlapping
-\* rules the code as found keeps calling the replicator with an EMPTY candidate list: a holder remembered from
-\* an earlier rule does not lower the shortage of a later rule - a phantom shortage that copies nothing.)
-Replicates(d) == \E k \in 1..Len(d.tasks) : Len(d.tasks[k].nodes) > 0
-Quiet(hs) == \A n \in hs : LET d == Decide27(n, hs, {}, {}) IN ~Replicates(d) /\ d.del = "none"
-NoTasks(hs) == \A n \in hs : ~Replicates(Decide27(n, hs, {}, {}))
-s\* a check "replicates" when it hands the replicator a task with at least one candidate node. (With overlapping
-\* rules the code as found keeps calling the replicator with an EMPTY candidate list: a holder remembered from
-\* an earlier rule does not lower the shortage of a later rule - a phantom shortage that copies nothing.)
-Replicates(d) == \E k \in 1..Len(d.tasks) : Len(d.tasks[k].nodes) > 0
-Quiet(hs) == \A n \in hs : LET d == Decide27(n, hs, {}, {}) IN ~Replicates(d) /\ d.del = "none"
-NoTasks(hs) == \A n \in hs : ~Replicates(Decide27(n, hs, {}, {}))
- \* a check "replicates" when it hands the replicator a task with at least one candidate node. (With overlapping
-\* rules the code as found keeps calling the replicator with an EMPTY candidate list: a holder remembered from
-\* an earlier rule does not lower the shortage of a later rule - a phantom shortage that copies nothing.)
-Replicates(d) == \E k \in 1..Len(d.tasks) : Len(d.tasks[k].nodes) > 0
-Quiet(hs) == \A n \in hs : LET d == Decide27(n, hs, {}, {}) IN ~Replicates(d) /\ d.del = "none"
-NoTasks(hs) == \A n \in hs : ~Replicates(Decide27(n, hs, {}, {}))
-t\* a check "replicates" when it hands the replicator a task with at least one candidate node. (With overlapping
-\* rules the code as found keeps calling the replicator with an EMPTY candidate list: a holder remembered from
-\* an earlier rule does not lower the shortage of a later rule - a phantom shortage that copies nothing.)
-Replicates(d) == \E k \in 1..Len(d.tasks) : Len(d.tasks[k].nodes) > 0
-Quiet(hs) == \A n \in hs : LET d == Decide27(n, hs, {}, {}) IN ~Replicates(d) /\ d.del = "none"
-NoTasks(hs) == \A n \in hs : ~Replicates(Decide27(n, hs, {}, {}))
-h\* a check "replicates" when it hands the replicator a task with at least one candidate node. (With overlapping
-\* rules the code as found keeps calling the replicator with an EMPTY candidate list: a holder remembered from
-\* an earlier rule does not lower the shortage of a later rule - a phantom shortage that copies nothing.)
-Replicates(d) == \E k \in 1..Len(d.tasks) : Len(d.tasks[k].nodes) > 0
-Quiet(hs) == \A n \in hs : LET d == Decide27(n, hs, {}, {}) IN ~Replicates(d) /\ d.del = "none"
-NoTasks(hs) == \A n \in hs : ~Replicates(Decide27(n, hs, {}, {}))
-r\* a check "replicates" when it hands the replicator a task with at least one candidate node. (With overlapping
-\* rules the code as found keeps calling the replicator with an EMPTY candidate list: a holder remembered from
-\* an earlier rule does not lower the shortage of a later rule - a phantom shortage that copies nothing.)
-Replicates(d) == \E k \in 1..Len(d.tasks) : Len(d.tasks[k].nodes) > 0
-Quiet(hs) == \A n \in hs : LET d == Decide27(n, hs, {}, {}) IN ~Replicates(d) /\ d.del = "none"
-NoTasks(hs) == \A n \in hs : ~Replicates(Decide27(n, hs, {}, {}))
-o\* a check "replicates" when it hands the replicator a task with at least one candidate node. (With overlapping
-\* rules the code as found keeps calling the replicator with an EMPTY candidate list: a holder remembered from
-\* an earlier rule does not lower the shortage of a later rule - a phantom shortage that copies nothing.)
-Replicates(d) == \E k \in 1..Len(d.tasks) : Len(d.tasks[k].nodes) > 0
-Quiet(hs) == \A n \in hs : LET d == Decide27(n, hs, {}, {}) IN ~Replicates(d) /\ d.del = "none"
-NoTasks(hs) == \A n \in hs : ~Replicates(Decide27(n, hs, {}, {}))
-u\* a check "replicates" when it hands the replicator a task with at least one candidate node. (With overlapping
-\* rules the code as found keeps calling the replicator with an EMPTY candidate list: a holder remembered from
-\* an earlier rule does not lower the shortage of a later rule - a phantom shortage that copies nothing.)
-Replicates(d) == \E k \in 1..Len(d.tasks) : Len(d.tasks[k].nodes) > 0
-Quiet(hs) == \A n \in hs : LET d == Decide27(n, hs, {}, {}) IN ~Replicates(d) /\ d.del = "none"
-NoTasks(hs) == \A n \in hs : ~Replicates(Decide27(n, hs, {}, {}))
-g\* a check "replicates" when it hands the replicator a task with at least one candidate node. (With overlapping
-\* rules the code as found keeps calling the replicator with an EMPTY candidate list: a holder remembered from
-\* an earlier rule does not lower the shortage of a later rule - a phantom shortage that copies nothing.)
-Replicates(d) == \E k \in 1..Len(d.tasks) : Len(d.tasks[k].nodes) > 0
-Quiet(hs) == \A n \in hs : LET d == Decide27(n, hs, {}, {}) IN ~Replicates(d) /\ d.del = "none"
-NoTasks(hs) == \A n \in hs : ~Replicates(Decide27(n, hs, {}, {}))
-h\* a check "replicates" when it hands the replicator a task with at least one candidate node. (With overlapping
-\* rules the code as found keeps calling the replicator with an EMPTY candidate list: a holder remembered from
-\* an earlier rule does not lower the shortage of a later rule - a phantom shortage that copies nothing.)
-Replicates(d) == \E k \in 1..Len(d.tasks) : Len(d.tasks[k].nodes) > 0
-Quiet(hs) == \A n \in hs : LET d == Decide27(n, hs, {}, {}) IN ~Replicates(d) /\ d.del = "none"
-NoTasks(hs) == \A n \in hs : ~Replicates(Decide27(n, hs, {}, {}))
- \* a check "replicates" when it hands the replicator a task with at least one candidate node. (With overlapping
-\* rules the code as found keeps calling the replicator with an EMPTY candidate list: a holder remembered from
-\* an earlier rule does not lower the shortage of a later rule - a phantom shortage that copies nothing.)
-Replicates(d) == \E k \in 1..Len(d.tasks) : Len(d.tasks[k].nodes) > 0
-Quiet(hs) == \A n \in hs : LET d == Decide27(n, hs, {}, {}) IN ~Replicates(d) /\ d.del = "none"
-NoTasks(hs) == \A n \in hs : ~Replicates(Decide27(n, hs, {}, {}))
-`\* a check "replicates" when it hands the replicator a task with at least one candidate node. (With overlapping
-\* rules the code as found keeps calling the replicator with an EMPTY candidate list: a holder remembered from
-\* an earlier rule does not lower the shortage of a later rule - a phantom shortage that copies nothing.)
-Replicates(d) == \E k \in 1..Len(d.tasks) : Len(d.tasks[k].nodes) > 0
-Quiet(hs) == \A n \in hs : LET d == Decide27(n, hs, {}, {}) IN ~Replicates(d) /\ d.del = "none"
-NoTasks(hs) == \A n \in hs : ~Replicates(Decide27(n, hs, {}, {}))
-n\* a check "replicates" when it hands the replicator a task with at least one candidate node. (With overlapping
-\* rules the code as found keeps calling the replicator with an EMPTY candidate list: a holder remembered from
-\* an earlier rule does not lower the shortage of a later rule - a phantom shortage that copies nothing.)
-Replicates(d) == \E k \in 1..Len(d.tasks) : Len(d.tasks[k].nodes) > 0
-Quiet(hs) == \A n \in hs : LET d == Decide27(n, hs, {}, {}) IN ~Replicates(d) /\ d.del = "none"
-NoTasks(hs) == \A n \in hs : ~Replicates(Decide27(n, hs, {}, {}))
-o\* a check "replicates" when it hands the replicator a task with at least one candidate node. (With overlapping
-\* rules the code as found keeps calling the replicator with an EMPTY candidate list: a holder remembered from
-\* an earlier rule does not lower the shortage of a later rule - a phantom shortage that copies nothing.)
-Replicates(d) == \E k \in 1..Len(d.tasks) : Len(d.tasks[k].nodes) > 0
-Quiet(hs) == \A n \in hs : LET d == Decide27(n, hs, {}, {}) IN ~Replicates(d) /\ d.del = "none"
-NoTasks(hs) == \A n \in hs : ~Replicates(Decide27(n, hs, {}, {}))
-d\* a check "replicates" when it hands the replicator a task with at least one candidate node. (With overlapping
-\* rules the code as found keeps calling the replicator with an EMPTY candidate list: a holder remembered from
-\* an earlier rule does not lower the shortage of a later rule - a phantom shortage that copies nothing.)
-Replicates(d) == \E k \in 1..Len(d.tasks) : Len(d.tasks[k].nodes) > 0
-Quiet(hs) == \A n \in hs : LET d == Decide27(n, hs, {}, {}) IN ~Replicates(d) /\ d.del = "none"
-NoTasks(hs) == \A n \in hs : ~Replicates(Decide27(n, hs, {}, {}))
-e\* a check "replicates" when it hands the replicator a task with at least one candidate node. (With overlapping
-\* rules the code as found keeps calling the replicator with an EMPTY candidate list: a holder remembered from
-\* an earlier rule does not lower the shortage of a later rule - a phantom shortage that copies nothing.)
-Replicates(d) == \E k \in 1..Len(d.tasks) : Len(d.tasks[k].nodes) > 0
-Quiet(hs) == \A n \in hs : LET d == Decide27(n, hs, {}, {}) IN ~Replicates(d) /\ d.del = "none"
-NoTasks(hs) == \A n \in hs : ~Replicates(Decide27(n, hs, {}, {}))
-s\* a check "replicates" when it hands the replicator a task with at least one candidate node. (With overlapping
-\* rules the code as found keeps calling the replicator with an EMPTY candidate list: a holder remembered from
-\* an earlier rule does not lower the shortage of a later rule - a phantom shortage that copies nothing.)
-Replicates(d) == \E k \in 1..Len(d.tasks) : Len(d.tasks[k].nodes) > 0
-Quiet(hs) == \A n \in hs : LET d == Decide27(n, hs, {}, {}) IN ~Replicates(d) /\ d.del = "none"
-NoTasks(hs) == \A n \in hs : ~Replicates(Decide27(n, hs, {}, {}))
-`\* a check "replicates" when it hands the replicator a task with at least one candidate node. (With overlapping
-\* rules the code as found keeps calling the replicator with an EMPTY candidate list: a holder remembered from
-\* an earlier rule does not lower the shortage of a later rule - a phantom shortage that copies nothing.)
-Replicates(d) == \E k \in 1..Len(d.tasks) : Len(d.tasks[k].nodes) > 0
-Quiet(hs) == \A n \in hs : LET d == Decide27(n, hs, {}, {}) IN ~Replicates(d) /\ d.del = "none"
-NoTasks(hs) == \A n \in hs : ~Replicates(Decide27(n, hs, {}, {}))
- \* a check "replicates" when it hands the replicator a task with at least one candidate node. (With overlapping
-\* rules the code as found keeps calling the replicator with an EMPTY candidate list: a holder remembered from
-\* an earlier rule does not lower the shortage of a later rule - a phantom shortage that copies nothing.)
-Replicates(d) == \E k \in 1..Len(d.tasks) : Len(d.tasks[k].nodes) > 0
-Quiet(hs) == \A n \in hs : LET d == Decide27(n, hs, {}, {}) IN ~Replicates(d) /\ d.del = "none"
-NoTasks(hs) == \A n \in hs : ~Replicates(Decide27(n, hs, {}, {}))
-i\* a check "replicates" when it hands the replicator a task with at least one candidate node. (With overlapping
-\* rules the code as found keeps calling the replicator with an EMPTY candidate list: a holder remembered from
-\* an earlier rule does not lower the shortage of a later rule - a phantom shortage that copies nothing.)
-Replicates(d) == \E k \in 1..Len(d.tasks) : Len(d.tasks[k].nodes) > 0
-Quiet(hs) == \A n \in hs : LET d == Decide27(n, hs, {}, {}) IN ~Replicates(d) /\ d.del = "none"
-NoTasks(hs) == \A n \in hs : ~Replicates(Decide27(n, hs, {}, {}))
-n\* a check "replicates" when it hands the replicator a task with at least one candidate node. (With overlapping
-\* rules the code as found keeps calling the replicator with an EMPTY candidate list: a holder remembered from
-\* an earlier rule does not lower the shortage of a later rule - a phantom shortage that copies nothing.)
-Replicates(d) == \E k \in 1..Len(d.tasks) : Len(d.tasks[k].nodes) > 0
-Quiet(hs) == \A n \in hs : LET d == Decide27(n, hs, {}, {}) IN ~Replicates(d) /\ d.del = "none"
-NoTasks(hs) == \A n \in hs : ~Replicates(Decide27(n, hs, {}, {}))
- \* a check "replicates" when it hands the replicator a task with at least one candidate node. (With overlapping
-\* rules the code as found keeps calling the replicator with an EMPTY candidate list: a holder remembered from
-\* an earlier rule does not lower the shortage of a later rule - a phantom shortage that copies nothing.)
-Replicates(d) == \E k \in 1..Len(d.tasks) : Len(d.tasks[k].nodes) > 0
-Quiet(hs) == \A n \in hs : LET d == Decide27(n, hs, {}, {}) IN ~Replicates(d) /\ d.del = "none"
-NoTasks(hs) == \A n \in hs : ~Replicates(Decide27(n, hs, {}, {}))
-o\* a check "replicates" when it hands the replicator a task with at least one candidate node. (With overlapping
-\* rules the code as found keeps calling the replicator with an EMPTY candidate list: a holder remembered from
-\* an earlier rule does not lower the shortage of a later rule - a phantom shortage that copies nothing.)
-Replicates(d) == \E k \in 1..Len(d.tasks) : Len(d.tasks[k].nodes) > 0
-Quiet(hs) == \A n \in hs : LET d == Decide27(n, hs, {}, {}) IN ~Replicates(d) /\ d.del = "none"
-NoTasks(hs) == \A n \in hs : ~Replicates(Decide27(n, hs, {}, {}))
-r\* a check "replicates" when it hands the replicator a task with at least one candidate node. (With overlapping
-\* rules the code as found keeps calling the replicator with an EMPTY candidate list: a holder remembered from
-\* an earlier rule does not lower the shortage of a later rule - a phantom shortage that copies nothing.)
-Replicates(d) == \E k \in 1..Len(d.tasks) : Len(d.tasks[k].nodes) > 0
-Quiet(hs) == \A n \in hs : LET d == Decide27(n, hs, {}, {}) IN ~Replicates(d) /\ d.del = "none"
-NoTasks(hs) == \A n \in hs : ~Replicates(Decide27(n, hs, {}, {}))
-d\* a check "replicates" when it hands the replicator a task with at least one candidate node. (With overlapping
-\* rules the code as found keeps calling the replicator with an EMPTY candidate list: a holder remembered from
-\* an earlier rule does not lower the shortage of a later rule - a phantom shortage that copies nothing.)
-Replicates(d) == \E k \in 1..Len(d.tasks) : Len(d.tasks[k].nodes) > 0
-Quiet(hs) == \A n \in hs : LET d == Decide27(n, hs, {}, {}) IN ~Replicates(d) /\ d.del = "none"
-NoTasks(hs) == \A n \in hs : ~Replicates(Decide27(n, hs, {}, {}))
-e\* a check "replicates" when it hands the replicator a task with at least one candidate node. (With overlapping
-\* rules the code as found keeps calling the replicator with an EMPTY candidate list: a holder remembered from
-\* an earlier rule does not lower the shortage of a later rule - a phantom shortage that copies nothing.)
-Replicates(d) == \E k \in 1..Len(d.tasks) : Len(d.tasks[k].nodes) > 0
-Quiet(hs) == \A n \in hs : LET d == Decide27(n, hs, {}, {}) IN ~Replicates(d) /\ d.del = "none"
-NoTasks(hs) == \A n \in hs : ~Replicates(Decide27(n, hs, {}, {}))
-r\* a check "replicates" when it hands the replicator a task with at least one candidate node. (With overlapping
-\* rules the code as found keeps calling the replicator with an EMPTY candidate list: a holder remembered from
-\* an earlier rule does not lower the shortage of a later rule - a phantom shortage that copies nothing.)
-Replicates(d) == \E k \in 1..Len(d.tasks) : Len(d.tasks[k].nodes) > 0
-Quiet(hs) == \A n \in hs : LET d == Decide27(n, hs, {}, {}) IN ~Replicates(d) /\ d.del = "none"
-NoTasks(hs) == \A n \in hs : ~Replicates(Decide27(n, hs, {}, {}))
- \* a check "replicates" when it hands the replicator a task with at least one candidate node. (With overlapping
-\* rules the code as found keeps calling the replicator with an EMPTY candidate list: a holder remembered from
-\* an earlier rule does not lower the shortage of a later rule - a phantom shortage that copies nothing.)
-Replicates(d) == \E k \in 1..Len(d.tasks) : Len(d.tasks[k].nodes) > 0
-Quiet(hs) == \A n \in hs : LET d == Decide27(n, hs, {}, {}) IN ~Replicates(d) /\ d.del = "none"
-NoTasks(hs) == \A n \in hs : ~Replicates(Decide27(n, hs, {}, {}))
-u\* a check "replicates" when it hands the replicator a task with at least one candidate node. (With overlapping
-\* rules the code as found keeps calling the replicator with an EMPTY candidate list: a holder remembered from
-\* an earlier rule does not lower the shortage of a later rule - a phantom shortage that copies nothing.)
-Replicates(d) == \E k \in 1..Len(d.tasks) : Len(d.tasks[k].nodes) > 0
-Quiet(hs) == \A n \in hs : LET d == Decide27(n, hs, {}, {}) IN ~Replicates(d) /\ d.del = "none"
-NoTasks(hs) == \A n \in hs : ~Replicates(Decide27(n, hs, {}, {}))
-n\* a check "replicates" when it hands the replicator a task with at least one candidate node. (With overlapping
-\* rules the code as found keeps calling the replicator with an EMPTY candidate list: a holder remembered from
-\* an earlier rule does not lower the shortage of a later rule - a phantom shortage that copies nothing.)
-Replicates(d) == \E k \in 1..Len(d.tasks) : Len(d.tasks[k].nodes) > 0
-Quiet(hs) == \A n \in hs : LET d == Decide27(n, hs, {}, {}) IN ~Replicates(d) /\ d.del = "none"
-NoTasks(hs) == \A n \in hs : ~Replicates(Decide27(n, hs, {}, {}))
-t\* a check "replicates" when it hands the replicator a task with at least one candidate node. (With overlapping
-\* rules the code as found keeps calling the replicator with an EMPTY candidate list: a holder remembered from
-\* an earlier rule does not lower the shortage of a later rule - a phantom shortage that copies nothing.)
-Replicates(d) == \E k \in 1..Len(d.tasks) : Len(d.tasks[k].nodes) > 0
-Quiet(hs) == \A n \in hs : LET d == Decide27(n, hs, {}, {}) IN ~Replicates(d) /\ d.del = "none"
-NoTasks(hs) == \A n \in hs : ~Replicates(Decide27(n, hs, {}, {}))
-i\* a check "replicates" when it hands the replicator a task with at least one candidate node. (With overlapping
-\* rules the code as found keeps calling the replicator with an EMPTY candidate list: a holder remembered from
-\* an earlier rule does not lower the shortage of a later rule - a phantom shortage that copies nothing.)
-Replicates(d) == \E k \in 1..Len(d.tasks) : Len(d.tasks[k].nodes) > 0
-Quiet(hs) == \A n \in hs : LET d == Decide27(n, hs, {}, {}) IN ~Replicates(d) /\ d.del = "none"
-NoTasks(hs) == \A n \in hs : ~Replicates(Decide27(n, hs, {}, {}))
-l\* a check "replicates" when it hands the replicator a task with at least one candidate node. (With overlapping
-\* rules the code as found keeps calling the replicator with an EMPTY candidate list: a holder remembered from
-\* an earlier rule does not lower the shortage of a later rule - a phantom shortage that copies nothing.)
-Replicates(d) == \E k \in 1..Len(d.tasks) : Len(d.tasks[k].nodes) > 0
-Quiet(hs) == \A n \in hs : LET d == Decide27(n, hs, {}, {}) IN ~Replicates(d) /\ d.del = "none"
-NoTasks(hs) == \A n \in hs : ~Replicates(Decide27(n, hs, {}, {}))
- \* a check "replicates" when it hands the replicator a task with at least one candidate node. (With overlapping
-\* rules the code as found keeps calling the replicator with an EMPTY candidate list: a holder remembered from
-\* an earlier rule does not lower the shortage of a later rule - a phantom shortage that copies nothing.)
-Replicates(d) == \E k \in 1..Len(d.tasks) : Len(d.tasks[k].nodes) > 0
-Quiet(hs) == \A n \in hs : LET d == Decide27(n, hs, {}, {}) IN ~Replicates(d) /\ d.del = "none"
-NoTasks(hs) == \A n \in hs : ~Replicates(Decide27(n, hs, {}, {}))
-q\* a check "replicates" when it hands the replicator a task with at least one candidate node. (With overlapping
-\* rules the code as found keeps calling the replicator with an EMPTY candidate list: a holder remembered from
-\* an earlier rule does not lower the shortage of a later rule - a phantom shortage that copies nothing.)
-Replicates(d) == \E k \in 1..Len(d.tasks) : Len(d.tasks[k].nodes) > 0
-Quiet(hs) == \A n \in hs : LET d == Decide27(n, hs, {}, {}) IN ~Replicates(d) /\ d.del = "none"
-NoTasks(hs) == \A n \in hs : ~Replicates(Decide27(n, hs, {}, {}))
- \* a check "replicates" when it hands the replicator a task with at least one candidate node. (With overlapping
-\* rules the code as found keeps calling the replicator with an EMPTY candidate list: a holder remembered from
-\* an earlier rule does not lower the shortage of a later rule - a phantom shortage that copies nothing.)
-Replicates(d) == \E k \in 1..Len(d.tasks) : Len(d.tasks[k].nodes) > 0
-Quiet(hs) == \A n \in hs : LET d == Decide27(n, hs, {}, {}) IN ~Replicates(d) /\ d.del = "none"
-NoTasks(hs) == \A n \in hs : ~Replicates(Decide27(n, hs, {}, {}))
-o\* a check "replicates" when it hands the replicator a task with at least one candidate node. (With overlapping
-\* rules the code as found keeps calling the replicator with an EMPTY candidate list: a holder remembered from
-\* an earlier rule does not lower the shortage of a later rule - a phantom shortage that copies nothing.)
-Replicates(d) == \E k \in 1..Len(d.tasks) : Len(d.tasks[k].nodes) > 0
-Quiet(hs) == \A n \in hs : LET d == Decide27(n, hs, {}, {}) IN ~Replicates(d) /\ d.del = "none"
-NoTasks(hs) == \A n \in hs : ~Replicates(Decide27(n, hs, {}, {}))
-f\* a check "replicates" when it hands the replicator a task with at least one candidate node. (With overlapping
-\* rules the code as found keeps calling the replicator with an EMPTY candidate list: a holder remembered from
-\* an earlier rule does not lower the shortage of a later rule - a phantom shortage that copies nothing.)
-Replicates(d) == \E k \in 1..Len(d.tasks) : Len(d.tasks[k].nodes) > 0
-Quiet(hs) == \A n \in hs : LET d == Decide27(n, hs, {}, {}) IN ~Replicates(d) /\ d.del = "none"
-NoTasks(hs) == \A n \in hs : ~Replicates(Decide27(n, hs, {}, {}))
- \* a check "replicates" when it hands the replicator a task with at least one candidate node. (With overlapping
-\* rules the code as found keeps calling the replicator with an EMPTY candidate list: a holder remembered from
-\* an earlier rule does not lower the shortage of a later rule - a phantom shortage that copies nothing.)
-Replicates(d) == \E k \in 1..Len(d.tasks) : Len(d.tasks[k].nodes) > 0
-Quiet(hs) == \A n \in hs : LET d == Decide27(n, hs, {}, {}) IN ~Replicates(d) /\ d.del = "none"
-NoTasks(hs) == \A n \in hs : ~Replicates(Decide27(n, hs, {}, {}))
-t\* a check "replicates" when it hands the replicator a task with at least one candidate node. (With overlapping
-\* rules the code as found keeps calling the replicator with an EMPTY candidate list: a holder remembered from
-\* an earlier rule does not lower the shortage of a later rule - a phantom shortage that copies nothing.)
-Replicates(d) == \E k \in 1..Len(d.tasks) : Len(d.tasks[k].nodes) > 0
-Quiet(hs) == \A n \in hs : LET d == Decide27(n, hs, {}, {}) IN ~Replicates(d) /\ d.del = "none"
-NoTasks(hs) == \A n \in hs : ~Replicates(Decide27(n, hs, {}, {}))
-h\* a check "replicates" when it hands the replicator a task with at least one candidate node. (With overlapping
-\* rules the code as found keeps calling the replicator with an EMPTY candidate list: a holder remembered from
-\* an earlier rule does not lower the shortage of a later rule - a phantom shortage that copies nothing.)
-Replicates(d) == \E k \in 1..Len(d.tasks) : Len(d.tasks[k].nodes) > 0
-Quiet(hs) == \A n \in hs : LET d == Decide27(n, hs, {}, {}) IN ~Replicates(d) /\ d.del = "none"
-NoTasks(hs) == \A n \in hs : ~Replicates(Decide27(n, hs, {}, {}))
-e\* a check "replicates" when it hands the replicator a task with at least one candidate node. (With overlapping
-\* rules the code as found keeps calling the replicator with an EMPTY candidate list: a holder remembered from
-\* an earlier rule does not lower the shortage of a later rule - a phantom shortage that copies nothing.)
-Replicates(d) == \E k \in 1..Len(d.tasks) : Len(d.tasks[k].nodes) > 0
-Quiet(hs) == \A n \in hs : LET d == Decide27(n, hs, {}, {}) IN ~Replicates(d) /\ d.del = "none"
-NoTasks(hs) == \A n \in hs : ~Replicates(Decide27(n, hs, {}, {}))
-m\* a check "replicates" when it hands the replicator a task with at least one candidate node. (With overlapping
-\* rules the code as found keeps calling the replicator with an EMPTY candidate list: a holder remembered from
-\* an earlier rule does not lower the shortage of a later rule - a phantom shortage that copies nothing.)
-Replicates(d) == \E k \in 1..Len(d.tasks) : Len(d.tasks[k].nodes) > 0
-Quiet(hs) == \A n \in hs : LET d == Decide27(n, hs, {}, {}) IN ~Replicates(d) /\ d.del = "none"
-NoTasks(hs) == \A n \in hs : ~Replicates(Decide27(n, hs, {}, {}))
- \* a check "replicates" when it hands the replicator a task with at least one candidate node. (With overlapping
-\* rules the code as found keeps calling the replicator with an EMPTY candidate list: a holder remembered from
-\* an earlier rule does not lower the shortage of a later rule - a phantom shortage that copies nothing.)
-Replicates(d) == \E k \in 1..Len(d.tasks) : Len(d.tasks[k].nodes) > 0
-Quiet(hs) == \A n \in hs : LET d == Decide27(n, hs, {}, {}) IN ~Replicates(d) /\ d.del = "none"
-NoTasks(hs) == \A n \in hs : ~Replicates(Decide27(n, hs, {}, {}))
-s\* a check "replicates" when it hands the replicator a task with at least one candidate node. (With overlapping
-\* rules the code as found keeps calling the replicator with an EMPTY candidate list: a holder remembered from
-\* an earlier rule does not lower the shortage of a later rule - a phantom shortage that copies nothing.)
-Replicates(d) == \E k \in 1..Len(d.tasks) : Len(d.tasks[k].nodes) > 0
-Quiet(hs) == \A n \in hs : LET d == Decide27(n, hs, {}, {}) IN ~Replicates(d) /\ d.del = "none"
-NoTasks(hs) == \A n \in hs : ~Replicates(Decide27(n, hs, {}, {}))
-t\* a check "replicates" when it hands the replicator a task with at least one candidate node. (With overlapping
-\* rules the code as found keeps calling the replicator with an EMPTY candidate list: a holder remembered from
-\* an earlier rule does not lower the shortage of a later rule - a phantom shortage that copies nothing.)
-Replicates(d) == \E k \in 1..Len(d.tasks) : Len(d.tasks[k].nodes) > 0
-Quiet(hs) == \A n \in hs : LET d == Decide27(n, hs, {}, {}) IN ~Replicates(d) /\ d.del = "none"
-NoTasks(hs) == \A n \in hs : ~Replicates(Decide27(n, hs, {}, {}))
-o\* a check "replicates" when it hands the replicator a task with at least one candidate node. (With overlapping
-\* rules the code as found keeps calling the replicator with an EMPTY candidate list: a holder remembered from
-\* an earlier rule does not lower the shortage of a later rule - a phantom shortage that copies nothing.)
-Replicates(d) == \E k \in 1..Len(d.tasks) : Len(d.tasks[k].nodes) > 0
-Quiet(hs) == \A n \in hs : LET d == Decide27(n, hs, {}, {}) IN ~Replicates(d) /\ d.del = "none"
-NoTasks(hs) == \A n \in hs : ~Replicates(Decide27(n, hs, {}, {}))
-r\* a check "replicates" when it hands the replicator a task with at least one candidate node. (With overlapping
-\* rules the code as found keeps calling the replicator with an EMPTY candidate list: a holder remembered from
-\* an earlier rule does not lower the shortage of a later rule - a phantom shortage that copies nothing.)
-Replicates(d) == \E k \in 1..Len(d.tasks) : Len(d.tasks[k].nodes) > 0
-Quiet(hs) == \A n \in hs : LET d == Decide27(n, hs, {}, {}) IN ~Replicates(d) /\ d.del = "none"
-NoTasks(hs) == \A n \in hs : ~Replicates(Decide27(n, hs, {}, {}))
-e\* a check "replicates" when it hands the replicator a task with at least one candidate node. (With overlapping
-\* rules the code as found keeps calling the replicator with an EMPTY candidate list: a holder remembered from
-\* an earlier rule does not lower the shortage of a later rule - a phantom shortage that copies nothing.)
-Replicates(d) == \E k \in 1..Len(d.tasks) : Len(d.tasks[k].nodes) > 0
-Quiet(hs) == \A n \in hs : LET d == Decide27(n, hs, {}, {}) IN ~Replicates(d) /\ d.del = "none"
-NoTasks(hs) == \A n \in hs : ~Replicates(Decide27(n, hs, {}, {}))
-d\* a check "replicates" when it hands the replicator a task with at least one candidate node. (With overlapping
-\* rules the code as found keeps calling the replicator with an EMPTY candidate list: a holder remembered from
-\* an earlier rule does not lower the shortage of a later rule - a phantom shortage that copies nothing.)
-Replicates(d) == \E k \in 1..Len(d.tasks) : Len(d.tasks[k].nodes) > 0
-Quiet(hs) == \A n \in hs : LET d == Decide27(n, hs, {}, {}) IN ~Replicates(d) /\ d.del = "none"
-NoTasks(hs) == \A n \in hs : ~Replicates(Decide27(n, hs, {}, {}))
-;\* a check "replicates" when it hands the replicator a task with at least one candidate node. (With overlapping
-\* rules the code as found keeps calling the replicator with an EMPTY candidate list: a holder remembered from
-\* an earlier rule does not lower the shortage of a later rule - a phantom shortage that copies nothing.)
-Replicates(d) == \E k \in 1..Len(d.tasks) : Len(d.tasks[k].nodes) > 0
-Quiet(hs) == \A n \in hs : LET d == Decide27(n, hs, {}, {}) IN ~Replicates(d) /\ d.del = "none"
-NoTasks(hs) == \A n \in hs : ~Replicates(Decide27(n, hs, {}, {}))
- \* a check "replicates" when it hands the replicator a task with at least one candidate node. (With overlapping
-\* rules the code as found keeps calling the replicator with an EMPTY candidate list: a holder remembered from
-\* an earlier rule does not lower the shortage of a later rule - a phantom shortage that copies nothing.)
-Replicates(d) == \E k \in 1..Len(d.tasks) : Len(d.tasks[k].nodes) > 0
-Quiet(hs) == \A n \in hs : LET d == Decide27(n, hs, {}, {}) IN ~Replicates(d) /\ d.del = "none"
-NoTasks(hs) == \A n \in hs : ~Replicates(Decide27(n, hs, {}, {}))
-t\* a check "replicates" when it hands the replicator a task with at least one candidate node. (With overlapping
-\* rules the code as found keeps calling the replicator with an EMPTY candidate list: a holder remembered from
-\* an earlier rule does not lower the shortage of a later rule - a phantom shortage that copies nothing.)
-Replicates(d) == \E k \in 1..Len(d.tasks) : Len(d.tasks[k].nodes) > 0
-Quiet(hs) == \A n \in hs : LET d == Decide27(n, hs, {}, {}) IN ~Replicates(d) /\ d.del = "none"
-NoTasks(hs) == \A n \in hs : ~Replicates(Decide27(n, hs, {}, {}))
-h\* a check "replicates" when it hands the replicator a task with at least one candidate node. (With overlapping
-\* rules the code as found keeps calling the replicator with an EMPTY candidate list: a holder remembered from
-\* an earlier rule does not lower the shortage of a later rule - a phantom shortage that copies nothing.)
-Replicates(d) == \E k \in 1..Len(d.tasks) : Len(d.tasks[k].nodes) > 0
-Quiet(hs) == \A n \in hs : LET d == Decide27(n, hs, {}, {}) IN ~Replicates(d) /\ d.del = "none"
-NoTasks(hs) == \A n \in hs : ~Replicates(Decide27(n, hs, {}, {}))
-e\* a check "replicates" when it hands the replicator a task with at least one candidate node. (With overlapping
-\* rules the code as found keeps calling the replicator with an EMPTY candidate list: a holder remembered from
-\* an earlier rule does not lower the shortage of a later rule - a phantom shortage that copies nothing.)
-Replicates(d) == \E k \in 1..Len(d.tasks) : Len(d.tasks[k].nodes) > 0
-Quiet(hs) == \A n \in hs : LET d == Decide27(n, hs, {}, {}) IN ~Replicates(d) /\ d.del = "none"
-NoTasks(hs) == \A n \in hs : ~Replicates(Decide27(n, hs, {}, {}))
- \* a check "replicates" when it hands the replicator a task with at least one candidate node. (With overlapping
-\* rules the code as found keeps calling the replicator with an EMPTY candidate list: a holder remembered from
-\* an earlier rule does not lower the shortage of a later rule - a phantom shortage that copies nothing.)
-Replicates(d) == \E k \in 1..Len(d.tasks) : Len(d.tasks[k].nodes) > 0
-Quiet(hs) == \A n \in hs : LET d == Decide27(n, hs, {}, {}) IN ~Replicates(d) /\ d.del = "none"
-NoTasks(hs) == \A n \in hs : ~Replicates(Decide27(n, hs, {}, {}))
-l\* a check "replicates" when it hands the replicator a task with at least one candidate node. (With overlapping
-\* rules the code as found keeps calling the replicator with an EMPTY candidate list: a holder remembered from
-\* an earlier rule does not lower the shortage of a later rule - a phantom shortage that copies nothing.)
-Replicates(d) == \E k \in 1..Len(d.tasks) : Len(d.tasks[k].nodes) > 0
-Quiet(hs) == \A n \in hs : LET d == Decide27(n, hs, {}, {}) IN ~Replicates(d) /\ d.del = "none"
-NoTasks(hs) == \A n \in hs : ~Replicates(Decide27(n, hs, {}, {}))
-o\* a check "replicates" when it hands the replicator a task with at least one candidate node. (With overlapping
-\* rules the code as found keeps calling the replicator with an EMPTY candidate list: a holder remembered from
-\* an earlier rule does not lower the shortage of a later rule - a phantom shortage that copies nothing.)
-Replicates(d) == \E k \in 1..Len(d.tasks) : Len(d.tasks[k].nodes) > 0
-Quiet(hs) == \A n \in hs : LET d == Decide27(n, hs, {}, {}) IN ~Replicates(d) /\ d.del = "none"
-NoTasks(hs) == \A n \in hs : ~Replicates(Decide27(n, hs, {}, {}))
-c\* a check "replicates" when it hands the replicator a task with at least one candidate node. (With overlapping
-\* rules the code as found keeps calling the replicator with an EMPTY candidate list: a holder remembered from
-\* an earlier rule does not lower the shortage of a later rule - a phantom shortage that copies nothing.)
-Replicates(d) == \E k \in 1..Len(d.tasks) : Len(d.tasks[k].nodes) > 0
-Quiet(hs) == \A n \in hs : LET d == Decide27(n, hs, {}, {}) IN ~Replicates(d) /\ d.del = "none"
-NoTasks(hs) == \A n \in hs : ~Replicates(Decide27(n, hs, {}, {}))
-a\* a check "replicates" when it hands the replicator a task with at least one candidate node. (With overlapping
-\* rules the code as found keeps calling the replicator with an EMPTY candidate list: a holder remembered from
-\* an earlier rule does not lower the shortage of a later rule - a phantom shortage that copies nothing.)
-Replicates(d) == \E k \in 1..Len(d.tasks) : Len(d.tasks[k].nodes) > 0
-Quiet(hs) == \A n \in hs : LET d == Decide27(n, hs, {}, {}) IN ~Replicates(d) /\ d.del = "none"
-NoTasks(hs) == \A n \in hs : ~Replicates(Decide27(n, hs, {}, {}))
-l\* a check "replicates" when it hands the replicator a task with at least one candidate node. (With overlapping
-\* rules the code as found keeps calling the replicator with an EMPTY candidate list: a holder remembered from
-\* an earlier rule does not lower the shortage of a later rule - a phantom shortage that copies nothing.)
-Replicates(d) == \E k \in 1..Len(d.tasks) : Len(d.tasks[k].nodes) > 0
-Quiet(hs) == \A n \in hs : LET d == Decide27(n, hs, {}, {}) IN ~Replicates(d) /\ d.del = "none"
-NoTasks(hs) == \A n \in hs : ~Replicates(Decide27(n, hs, {}, {}))
- \* a check "replicates" when it hands the replicator a task with at least one candidate node. (With overlapping
-\* rules the code as found keeps calling the replicator with an EMPTY candidate list: a holder remembered from
-\* an earlier rule does not lower the shortage of a later rule - a phantom shortage that copies nothing.)
-Replicates(d) == \E k \in 1..Len(d.tasks) : Len(d.tasks[k].nodes) > 0
-Quiet(hs) == \A n \in hs : LET d == Decide27(n, hs, {}, {}) IN ~Replicates(d) /\ d.del = "none"
-NoTasks(hs) == \A n \in hs : ~Replicates(Decide27(n, hs, {}, {}))
-n\* a check "replicates" when it hands the replicator a task with at least one candidate node. (With overlapping
-\* rules the code as found keeps calling the replicator with an EMPTY candidate list: a holder remembered from
-\* an earlier rule does not lower the shortage of a later rule - a phantom shortage that copies nothing.)
-Replicates(d) == \E k \in 1..Len(d.tasks) : Len(d.tasks[k].nodes) > 0
-Quiet(hs) == \A n \in hs : LET d == Decide27(n, hs, {}, {}) IN ~Replicates(d) /\ d.del = "none"
-NoTasks(hs) == \A n \in hs : ~Replicates(Decide27(n, hs, {}, {}))
-o\* a check "replicates" when it hands the replicator a task with at least one candidate node. (With overlapping
-\* rules the code as found keeps calling the replicator with an EMPTY candidate list: a holder remembered from
-\* an earlier rule does not lower the shortage of a later rule - a phantom shortage that copies nothing.)
-Replicates(d) == \E k \in 1..Len(d.tasks) : Len(d.tasks[k].nodes) > 0
-Quiet(hs) == \A n \in hs : LET d == Decide27(n, hs, {}, {}) IN ~Replicates(d) /\ d.del = "none"
-NoTasks(hs) == \A n \in hs : ~Replicates(Decide27(n, hs, {}, {}))
-d\* a check "replicates" when it hands the replicator a task with at least one candidate node. (With overlapping
-\* rules the code as found keeps calling the replicator with an EMPTY candidate list: a holder remembered from
-\* an earlier rule does not lower the shortage of a later rule - a phantom shortage that copies nothing.)
-Replicates(d) == \E k \in 1..Len(d.tasks) : Len(d.tasks[k].nodes) > 0
-Quiet(hs) == \A n \in hs : LET d == Decide27(n, hs, {}, {}) IN ~Replicates(d) /\ d.del = "none"
-NoTasks(hs) == \A n \in hs : ~Replicates(Decide27(n, hs, {}, {}))
-e\* a check "replicates" when it hands the replicator a task with at least one candidate node. (With overlapping
-\* rules the code as found keeps calling the replicator with an EMPTY candidate list: a holder remembered from
-\* an earlier rule does not lower the shortage of a later rule - a phantom shortage that copies nothing.)
-Replicates(d) == \E k \in 1..Len(d.tasks) : Len(d.tasks[k].nodes) > 0
-Quiet(hs) == \A n \in hs : LET d == Decide27(n, hs, {}, {}) IN ~Replicates(d) /\ d.del = "none"
-NoTasks(hs) == \A n \in hs : ~Replicates(Decide27(n, hs, {}, {}))
- \* a check "replicates" when it hands the replicator a task with at least one candidate node. (With overlapping
-\* rules the code as found keeps calling the replicator with an EMPTY candidate list: a holder remembered from
-\* an earlier rule does not lower the shortage of a later rule - a phantom shortage that copies nothing.)
-Replicates(d) == \E k \in 1..Len(d.tasks) : Len(d.tasks[k].nodes) > 0
-Quiet(hs) == \A n \in hs : LET d == Decide27(n, hs, {}, {}) IN ~Replicates(d) /\ d.del = "none"
-NoTasks(hs) == \A n \in hs : ~Replicates(Decide27(n, hs, {}, {}))
-s\* a check "replicates" when it hands the replicator a task with at least one candidate node. (With overlapping
-\* rules the code as found keeps calling the replicator with an EMPTY candidate list: a holder remembered from
-\* an earlier rule does not lower the shortage of a later rule - a phantom shortage that copies nothing.)
-Replicates(d) == \E k \in 1..Len(d.tasks) : Len(d.tasks[k].nodes) > 0
-Quiet(hs) == \A n \in hs : LET d == Decide27(n, hs, {}, {}) IN ~Replicates(d) /\ d.del = "none"
-NoTasks(hs) == \A n \in hs : ~Replicates(Decide27(n, hs, {}, {}))
-t\* a check "replicates" when it hands the replicator a task with at least one candidate node. (With overlapping
-\* rules the code as found keeps calling the replicator with an EMPTY candidate list: a holder remembered from
-\* an earlier rule does not lower the shortage of a later rule - a phantom shortage that copies nothing.)
-Replicates(d) == \E k \in 1..Len(d.tasks) : Len(d.tasks[k].nodes) > 0
-Quiet(hs) == \A n \in hs : LET d == Decide27(n, hs, {}, {}) IN ~Replicates(d) /\ d.del = "none"
-NoTasks(hs) == \A n \in hs : ~Replicates(Decide27(n, hs, {}, {}))
-o\* a check "replicates" when it hands the replicator a task with at least one candidate node. (With overlapping
-\* rules the code as found keeps calling the replicator with an EMPTY candidate list: a holder remembered from
-\* an earlier rule does not lower the shortage of a later rule - a phantom shortage that copies nothing.)
-Replicates(d) == \E k \in 1..Len(d.tasks) : Len(d.tasks[k].nodes) > 0
-Quiet(hs) == \A n \in hs : LET d == Decide27(n, hs, {}, {}) IN ~Replicates(d) /\ d.del = "none"
-NoTasks(hs) == \A n \in hs : ~Replicates(Decide27(n, hs, {}, {}))
-r\* a check "replicates" when it hands the replicator a task with at least one candidate node. (With overlapping
-\* rules the code as found keeps calling the replicator with an EMPTY candidate list: a holder remembered from
-\* an earlier rule does not lower the shortage of a later rule - a phantom shortage that copies nothing.)
-Replicates(d) == \E k \in 1..Len(d.tasks) : Len(d.tasks[k].nodes) > 0
-Quiet(hs) == \A n \in hs : LET d == Decide27(n, hs, {}, {}) IN ~Replicates(d) /\ d.del = "none"
-NoTasks(hs) == \A n \in hs : ~Replicates(Decide27(n, hs, {}, {}))
-e\* a check "replicates" when it hands the replicator a task with at least one candidate node. (With overlapping
-\* rules the code as found keeps calling the replicator with an EMPTY candidate list: a holder remembered from
-\* an earlier rule does not lower the shortage of a later rule - a phantom shortage that copies nothing.)
-Replicates(d) == \E k \in 1..Len(d.tasks) : Len(d.tasks[k].nodes) > 0
-Quiet(hs) == \A n \in hs : LET d == Decide27(n, hs, {}, {}) IN ~Replicates(d) /\ d.del = "none"
-NoTasks(hs) == \A n \in hs : ~Replicates(Decide27(n, hs, {}, {}))
-s\* a check "replicates" when it hands the replicator a task with at least one candidate node. (With overlapping
-\* rules the code as found keeps calling the replicator with an EMPTY candidate list: a holder remembered from
-\* an earlier rule does not lower the shortage of a later rule - a phantom shortage that copies nothing.)
-Replicates(d) == \E k \in 1..Len(d.tasks) : Len(d.tasks[k].nodes) > 0
-Quiet(hs) == \A n \in hs : LET d == Decide27(n, hs, {}, {}) IN ~Replicates(d) /\ d.del = "none"
-NoTasks(hs) == \A n \in hs : ~Replicates(Decide27(n, hs, {}, {}))
- \* a check "replicates" when it hands the replicator a task with at least one candidate node. (With overlapping
-\* rules the code as found keeps calling the replicator with an EMPTY candidate list: a holder remembered from
-\* an earlier rule does not lower the shortage of a later rule - a phantom shortage that copies nothing.)
-Replicates(d) == \E k \in 1..Len(d.tasks) : Len(d.tasks[k].nodes) > 0
-Quiet(hs) == \A n \in hs : LET d == Decide27(n, hs, {}, {}) IN ~Replicates(d) /\ d.del = "none"
-NoTasks(hs) == \A n \in hs : ~Replicates(Decide27(n, hs, {}, {}))
-d\* a check "replicates" when it hands the replicator a task with at least one candidate node. (With overlapping
-\* rules the code as found keeps calling the replicator with an EMPTY candidate list: a holder remembered from
-\* an earlier rule does not lower the shortage of a later rule - a phantom shortage that copies nothing.)
-Replicates(d) == \E k \in 1..Len(d.tasks) : Len(d.tasks[k].nodes) > 0
-Quiet(hs) == \A n \in hs : LET d == Decide27(n, hs, {}, {}) IN ~Replicates(d) /\ d.del = "none"
-NoTasks(hs) == \A n \in hs : ~Replicates(Decide27(n, hs, {}, {}))
-i\* a check "replicates" when it hands the replicator a task with at least one candidate node. (With overlapping
-\* rules the code as found keeps calling the replicator with an EMPTY candidate list: a holder remembered from
-\* an earlier rule does not lower the shortage of a later rule - a phantom shortage that copies nothing.)
-Replicates(d) == \E k \in 1..Len(d.tasks) : Len(d.tasks[k].nodes) > 0
-Quiet(hs) == \A n \in hs : LET d == Decide27(n, hs, {}, {}) IN ~Replicates(d) /\ d.del = "none"
-NoTasks(hs) == \A n \in hs : ~Replicates(Decide27(n, hs, {}, {}))
-r\* a check "replicates" when it hands the replicator a task with at least one candidate node. (With overlapping
-\* rules the code as found keeps calling the replicator with an EMPTY candidate list: a holder remembered from
-\* an earlier rule does not lower the shortage of a later rule - a phantom shortage that copies nothing.)
-Replicates(d) == \E k \in 1..Len(d.tasks) : Len(d.tasks[k].nodes) > 0
-Quiet(hs) == \A n \in hs : LET d == Decide27(n, hs, {}, {}) IN ~Replicates(d) /\ d.del = "none"
-NoTasks(hs) == \A n \in hs : ~Replicates(Decide27(n, hs, {}, {}))
-e\* a check "replicates" when it hands the replicator a task with at least one candidate node. (With overlapping
-\* rules the code as found keeps calling the replicator with an EMPTY candidate list: a holder remembered from
-\* an earlier rule does not lower the shortage of a later rule - a phantom shortage that copies nothing.)
-Replicates(d) == \E k \in 1..Len(d.tasks) : Len(d.tasks[k].nodes) > 0
-Quiet(hs) == \A n \in hs : LET d == Decide27(n, hs, {}, {}) IN ~Replicates(d) /\ d.del = "none"
-NoTasks(hs) == \A n \in hs : ~Replicates(Decide27(n, hs, {}, {}))
-c\* a check "replicates" when it hands the replicator a task with at least one candidate node. (With overlapping
-\* rules the code as found keeps calling the replicator with an EMPTY candidate list: a holder remembered from
-\* an earlier rule does not lower the shortage of a later rule - a phantom shortage that copies nothing.)
-Replicates(d) == \E k \in 1..Len(d.tasks) : Len(d.tasks[k].nodes) > 0
-Quiet(hs) == \A n \in hs : LET d == Decide27(n, hs, {}, {}) IN ~Replicates(d) /\ d.del = "none"
-NoTasks(hs) == \A n \in hs : ~Replicates(Decide27(n, hs, {}, {}))
-t\* a check "replicates" when it hands the replicator a task with at least one candidate node. (With overlapping
-\* rules the code as found keeps calling the replicator with an EMPTY candidate list: a holder remembered from
-\* an earlier rule does not lower the shortage of a later rule - a phantom shortage that copies nothing.)
-Replicates(d) == \E k \in 1..Len(d.tasks) : Len(d.tasks[k].nodes) > 0
-Quiet(hs) == \A n \in hs : LET d == Decide27(n, hs, {}, {}) IN ~Replicates(d) /\ d.del = "none"
-NoTasks(hs) == \A n \in hs : ~Replicates(Decide27(n, hs, {}, {}))
-l\* a check "replicates" when it hands the replicator a task with at least one candidate node. (With overlapping
-\* rules the code as found keeps calling the replicator with an EMPTY candidate list: a holder remembered from
-\* an earlier rule does not lower the shortage of a later rule - a phantom shortage that copies nothing.)
-Replicates(d) == \E k \in 1..Len(d.tasks) : Len(d.tasks[k].nodes) > 0
-Quiet(hs) == \A n \in hs : LET d == Decide27(n, hs, {}, {}) IN ~Replicates(d) /\ d.del = "none"
-NoTasks(hs) == \A n \in hs : ~Replicates(Decide27(n, hs, {}, {}))
-y\* a check "replicates" when it hands the replicator a task with at least one candidate node. (With overlapping
-\* rules the code as found keeps calling the replicator with an EMPTY candidate list: a holder remembered from
-\* an earlier rule does not lower the shortage of a later rule - a phantom shortage that copies nothing.)
-Replicates(d) == \E k \in 1..Len(d.tasks) : Len(d.tasks[k].nodes) > 0
-Quiet(hs) == \A n \in hs : LET d == Decide27(n, hs, {}, {}) IN ~Replicates(d) /\ d.del = "none"
-NoTasks(hs) == \A n \in hs : ~Replicates(Decide27(n, hs, {}, {}))
-
-\* a check "replicates" when it hands the replicator a task with at least one candidate node. (With overlapping
-\* rules the code as found keeps calling the replicator with an EMPTY candidate list: a holder remembered from
-\* an earlier rule does not lower the shortage of a later rule - a phantom shortage that copies nothing.)
-Replicates(d) == \E k \in 1..Len(d.tasks) : Len(d.tasks[k].nodes) > 0
-Quiet(hs) == \A n \in hs : LET d == Decide27(n, hs, {}, {}) IN ~Replicates(d) /\ d.del = "none"
-NoTasks(hs) == \A n \in hs : ~Replicates(Decide27(n, hs, {}, {}))
-R\* a check "replicates" when it hands the replicator a task with at least one candidate node. (With overlapping
-\* rules the code as found keeps calling the replicator with an EMPTY candidate list: a holder remembered from
-\* an earlier rule does not lower the shortage of a later rule - a phantom shortage that copies nothing.)
-Replicates(d) == \E k \in 1..Len(d.tasks) : Len(d.tasks[k].nodes) > 0
-Quiet(hs) == \A n \in hs : LET d == Decide27(n, hs, {}, {}) IN ~Replicates(d) /\ d.del = "none"
-NoTasks(hs) == \A n \in hs : ~Replicates(Decide27(n, hs, {}, {}))
-E\* a check "replicates" when it hands the replicator a task with at least one candidate node. (With overlapping
-\* rules the code as found keeps calling the replicator with an EMPTY candidate list: a holder remembered from
-\* an earlier rule does not lower the shortage of a later rule - a phantom shortage that copies nothing.)
-Replicates(d) == \E k \in 1..Len(d.tasks) : Len(d.tasks[k].nodes) > 0
-Quiet(hs) == \A n \in hs : LET d == Decide27(n, hs, {}, {}) IN ~Replicates(d) /\ d.del = "none"
-NoTasks(hs) == \A n \in hs : ~Replicates(Decide27(n, hs, {}, {}))
-C\* a check "replicates" when it hands the replicator a task with at least one candidate node. (With overlapping
-\* rules the code as found keeps calling the replicator with an EMPTY candidate list: a holder remembered from
-\* an earlier rule does not lower the shortage of a later rule - a phantom shortage that copies nothing.)
-Replicates(d) == \E k \in 1..Len(d.tasks) : Len(d.tasks[k].nodes) > 0
-Quiet(hs) == \A n \in hs : LET d == Decide27(n, hs, {}, {}) IN ~Replicates(d) /\ d.del = "none"
-NoTasks(hs) == \A n \in hs : ~Replicates(Decide27(n, hs, {}, {}))
-U\* a check "replicates" when it hands the replicator a task with at least one candidate node. (With overlapping
-\* rules the code as found keeps calling the replicator with an EMPTY candidate list: a holder remembered from
-\* an earlier rule does not lower the shortage of a later rule - a phantom shortage that copies nothing.)
-Replicates(d) == \E k \in 1..Len(d.tasks) : Len(d.tasks[k].nodes) > 0
-Quiet(hs) == \A n \in hs : LET d == Decide27(n, hs, {}, {}) IN ~Replicates(d) /\ d.del = "none"
-NoTasks(hs) == \A n \in hs : ~Replicates(Decide27(n, hs, {}, {}))
-R\* a check "replicates" when it hands the replicator a task with at least one candidate node. (With overlapping
-\* rules the code as found keeps calling the replicator with an EMPTY candidate list: a holder remembered from
-\* an earlier rule does not lower the shortage of a later rule - a phantom shortage that copies nothing.)
-Replicates(d) == \E k \in 1..Len(d.tasks) : Len(d.tasks[k].nodes) > 0
-Quiet(hs) == \A n \in hs : LET d == Decide27(n, hs, {}, {}) IN ~Replicates(d) /\ d.del = "none"
-NoTasks(hs) == \A n \in hs : ~Replicates(Decide27(n, hs, {}, {}))
-S\* a check "replicates" when it hands the replicator a task with at least one candidate node. (With overlapping
-\* rules the code as found keeps calling the replicator with an EMPTY candidate list: a holder remembered from
-\* an earlier rule does not lower the shortage of a later rule - a phantom shortage that copies nothing.)
-Replicates(d) == \E k \in 1..Len(d.tasks) : Len(d.tasks[k].nodes) > 0
-Quiet(hs) == \A n \in hs : LET d == Decide27(n, hs, {}, {}) IN ~Replicates(d) /\ d.del = "none"
-NoTasks(hs) == \A n \in hs : ~Replicates(Decide27(n, hs, {}, {}))
-I\* a check "replicates" when it hands the replicator a task with at least one candidate node. (With overlapping
-\* rules the code as found keeps calling the replicator with an EMPTY candidate list: a holder remembered from
-\* an earlier rule does not lower the shortage of a later rule - a phantom shortage that copies nothing.)
-Replicates(d) == \E k \in 1..Len(d.tasks) : Len(d.tasks[k].nodes) > 0
-Quiet(hs) == \A n \in hs : LET d == Decide27(n, hs, {}, {}) IN ~Replicates(d) /\ d.del = "none"
-NoTasks(hs) == \A n \in hs : ~Replicates(Decide27(n, hs, {}, {}))
-V\* a check "replicates" when it hands the replicator a task with at least one candidate node. (With overlapping
-\* rules the code as found keeps calling the replicator with an EMPTY candidate list: a holder remembered from
-\* an earlier rule does not lower the shortage of a later rule - a phantom shortage that copies nothing.)
-Replicates(d) == \E k \in 1..Len(d.tasks) : Len(d.tasks[k].nodes) > 0
-Quiet(hs) == \A n \in hs : LET d == Decide27(n, hs, {}, {}) IN ~Replicates(d) /\ d.del = "none"
-NoTasks(hs) == \A n \in hs : ~Replicates(Decide27(n, hs, {}, {}))
-E\* a check "replicates" when it hands the replicator a task with at least one candidate node. (With overlapping
-\* rules the code as found keeps calling the replicator with an EMPTY candidate list: a holder remembered from
-\* an earlier rule does not lower the shortage of a later rule - a phantom shortage that copies nothing.)
-Replicates(d) == \E k \in 1..Len(d.tasks) : Len(d.tasks[k].nodes) > 0
-Quiet(hs) == \A n \in hs : LET d == Decide27(n, hs, {}, {}) IN ~Replicates(d) /\ d.del = "none"
-NoTasks(hs) == \A n \in hs : ~Replicates(Decide27(n, hs, {}, {}))
- \* a check "replicates" when it hands the replicator a task with at least one candidate node. (With overlapping
-\* rules the code as found keeps calling the replicator with an EMPTY candidate list: a holder remembered from
-\* an earlier rule does not lower the shortage of a later rule - a phantom shortage that copies nothing.)
-Replicates(d) == \E k \in 1..Len(d.tasks) : Len(d.tasks[k].nodes) > 0
-Quiet(hs) == \A n \in hs : LET d == Decide27(n, hs, {}, {}) IN ~Replicates(d) /\ d.del = "none"
-NoTasks(hs) == \A n \in hs : ~Replicates(Decide27(n, hs, {}, {}))
-R\* a check "replicates" when it hands the replicator a task with at least one candidate node. (With overlapping
-\* rules the code as found keeps calling the replicator with an EMPTY candidate list: a holder remembered from
-\* an earlier rule does not lower the shortage of a later rule - a phantom shortage that copies nothing.)
-Replicates(d) == \E k \in 1..Len(d.tasks) : Len(d.tasks[k].nodes) > 0
-Quiet(hs) == \A n \in hs : LET d == Decide27(n, hs, {}, {}) IN ~Replicates(d) /\ d.del = "none"
-NoTasks(hs) == \A n \in hs : ~Replicates(Decide27(n, hs, {}, {}))
-e\* a check "replicates" when it hands the replicator a task with at least one candidate node. (With overlapping
-\* rules the code as found keeps calling the replicator with an EMPTY candidate list: a holder remembered from
-\* an earlier rule does not lower the shortage of a later rule - a phantom shortage that copies nothing.)
-Replicates(d) == \E k \in 1..Len(d.tasks) : Len(d.tasks[k].nodes) > 0
-Quiet(hs) == \A n \in hs : LET d == Decide27(n, hs, {}, {}) IN ~Replicates(d) /\ d.del = "none"
-NoTasks(hs) == \A n \in hs : ~Replicates(Decide27(n, hs, {}, {}))
-p\* a check "replicates" when it hands the replicator a task with at least one candidate node. (With overlapping
-\* rules the code as found keeps calling the replicator with an EMPTY candidate list: a holder remembered from
-\* an earlier rule does not lower the shortage of a later rule - a phantom shortage that copies nothing.)
-Replicates(d) == \E k \in 1..Len(d.tasks) : Len(d.tasks[k].nodes) > 0
-Quiet(hs) == \A n \in hs : LET d == Decide27(n, hs, {}, {}) IN ~Replicates(d) /\ d.del = "none"
-NoTasks(hs) == \A n \in hs : ~Replicates(Decide27(n, hs, {}, {}))
-l\* a check "replicates" when it hands the replicator a task with at least one candidate node. (With overlapping
-\* rules the code as found keeps calling the replicator with an EMPTY candidate list: a holder remembered from
-\* an earlier rule does not lower the shortage of a later rule - a phantom shortage that copies nothing.)
-Replicates(d) == \E k \in 1..Len(d.tasks) : Len(d.tasks[k].nodes) > 0
-Quiet(hs) == \A n \in hs : LET d == Decide27(n, hs, {}, {}) IN ~Replicates(d) /\ d.del = "none"
-NoTasks(hs) == \A n \in hs : ~Replicates(Decide27(n, hs, {}, {}))
-T\* a check "replicates" when it hands the replicator a task with at least one candidate node. (With overlapping
-\* rules the code as found keeps calling the replicator with an EMPTY candidate list: a holder remembered from
-\* an earlier rule does not lower the shortage of a later rule - a phantom shortage that copies nothing.)
-Replicates(d) == \E k \in 1..Len(d.tasks) : Len(d.tasks[k].nodes) > 0
-Quiet(hs) == \A n \in hs : LET d == Decide27(n, hs, {}, {}) IN ~Replicates(d) /\ d.del = "none"
-NoTasks(hs) == \A n \in hs : ~Replicates(Decide27(n, hs, {}, {}))
-(\* a check "replicates" when it hands the replicator a task with at least one candidate node. (With overlapping
-\* rules the code as found keeps calling the replicator with an EMPTY candidate list: a holder remembered from
-\* an earlier rule does not lower the shortage of a later rule - a phantom shortage that copies nothing.)
-Replicates(d) == \E k \in 1..Len(d.tasks) : Len(d.tasks[k].nodes) > 0
-Quiet(hs) == \A n \in hs : LET d == Decide27(n, hs, {}, {}) IN ~Replicates(d) /\ d.del = "none"
-NoTasks(hs) == \A n \in hs : ~Replicates(Decide27(n, hs, {}, {}))
-_\* a check "replicates" when it hands the replicator a task with at least one candidate node. (With overlapping
-\* rules the code as found keeps calling the replicator with an EMPTY candidate list: a holder remembered from
-\* an earlier rule does not lower the shortage of a later rule - a phantom shortage that copies nothing.)
-Replicates(d) == \E k \in 1..Len(d.tasks) : Len(d.tasks[k].nodes) > 0
-Quiet(hs) == \A n \in hs : LET d == Decide27(n, hs, {}, {}) IN ~Replicates(d) /\ d.del = "none"
-NoTasks(hs) == \A n \in hs : ~Replicates(Decide27(n, hs, {}, {}))
-,\* a check "replicates" when it hands the replicator a task with at least one candidate node. (With overlapping
-\* rules the code as found keeps calling the replicator with an EMPTY candidate list: a holder remembered from
-\* an earlier rule does not lower the shortage of a later rule - a phantom shortage that copies nothing.)
-Replicates(d) == \E k \in 1..Len(d.tasks) : Len(d.tasks[k].nodes) > 0
-Quiet(hs) == \A n \in hs : LET d == Decide27(n, hs, {}, {}) IN ~Replicates(d) /\ d.del = "none"
-NoTasks(hs) == \A n \in hs : ~Replicates(Decide27(n, hs, {}, {}))
- \* a check "replicates" when it hands the replicator a task with at least one candidate node. (With overlapping
-\* rules the code as found keeps calling the replicator with an EMPTY candidate list: a holder remembered from
-\* an earlier rule does not lower the shortage of a later rule - a phantom shortage that copies nothing.)
-Replicates(d) == \E k \in 1..Len(d.tasks) : Len(d.tasks[k].nodes) > 0
-Quiet(hs) == \A n \in hs : LET d == Decide27(n, hs, {}, {}) IN ~Replicates(d) /\ d.del = "none"
-NoTasks(hs) == \A n \in hs : ~Replicates(Decide27(n, hs, {}, {}))
-_\* a check "replicates" when it hands the replicator a task with at least one candidate node. (With overlapping
-\* rules the code as found keeps calling the replicator with an EMPTY candidate list: a holder remembered from
-\* an earlier rule does not lower the shortage of a later rule - a phantom shortage that copies nothing.)
-Replicates(d) == \E k \in 1..Len(d.tasks) : Len(d.tasks[k].nodes) > 0
-Quiet(hs) == \A n \in hs : LET d == Decide27(n, hs, {}, {}) IN ~Replicates(d) /\ d.del = "none"
-NoTasks(hs) == \A n \in hs : ~Replicates(Decide27(n, hs, {}, {}))
-,\* a check "replicates" when it hands the replicator a task with at least one candidate node. (With overlapping
-\* rules the code as found keeps calling the replicator with an EMPTY candidate list: a holder remembered from
-\* an earlier rule does not lower the shortage of a later rule - a phantom shortage that copies nothing.)
-Replicates(d) == \E k \in 1..Len(d.tasks) : Len(d.tasks[k].nodes) > 0
-Quiet(hs) == \A n \in hs : LET d == Decide27(n, hs, {}, {}) IN ~Replicates(d) /\ d.del = "none"
-NoTasks(hs) == \A n \in hs : ~Replicates(Decide27(n, hs, {}, {}))
- \* a check "replicates" when it hands the replicator a task with at least one candidate node. (With overlapping
-\* rules the code as found keeps calling the replicator with an EMPTY candidate list: a holder remembered from
-\* an earlier rule does not lower the shortage of a later rule - a phantom shortage that copies nothing.)
-Replicates(d) == \E k \in 1..Len(d.tasks) : Len(d.tasks[k].nodes) > 0
-Quiet(hs) == \A n \in hs : LET d == Decide27(n, hs, {}, {}) IN ~Replicates(d) /\ d.del = "none"
-NoTasks(hs) == \A n \in hs : ~Replicates(Decide27(n, hs, {}, {}))
-_\* a check "replicates" when it hands the replicator a task with at least one candidate node. (With overlapping
-\* rules the code as found keeps calling the replicator with an EMPTY candidate list: a holder remembered from
-\* an earlier rule does not lower the shortage of a later rule - a phantom shortage that copies nothing.)
-Replicates(d) == \E k \in 1..Len(d.tasks) : Len(d.tasks[k].nodes) > 0
-Quiet(hs) == \A n \in hs : LET d == Decide27(n, hs, {}, {}) IN ~Replicates(d) /\ d.del = "none"
-NoTasks(hs) == \A n \in hs : ~Replicates(Decide27(n, hs, {}, {}))
-,\* a check "replicates" when it hands the replicator a task with at least one candidate node. (With overlapping
-\* rules the code as found keeps calling the replicator with an EMPTY candidate list: a holder remembered from
-\* an earlier rule does not lower the shortage of a later rule - a phantom shortage that copies nothing.)
-Replicates(d) == \E k \in 1..Len(d.tasks) : Len(d.tasks[k].nodes) > 0
-Quiet(hs) == \A n \in hs : LET d == Decide27(n, hs, {}, {}) IN ~Replicates(d) /\ d.del = "none"
-NoTasks(hs) == \A n \in hs : ~Replicates(Decide27(n, hs, {}, {}))
- \* a check "replicates" when it hands the replicator a task with at least one candidate node. (With overlapping
-\* rules the code as found keeps calling the replicator with an EMPTY candidate list: a holder remembered from
-\* an earlier rule does not lower the shortage of a later rule - a phantom shortage that copies nothing.)
-Replicates(d) == \E k \in 1..Len(d.tasks) : Len(d.tasks[k].nodes) > 0
-Quiet(hs) == \A n \in hs : LET d == Decide27(n, hs, {}, {}) IN ~Replicates(d) /\ d.del = "none"
-NoTasks(hs) == \A n \in hs : ~Replicates(Decide27(n, hs, {}, {}))
-_\* a check "replicates" when it hands the replicator a task with at least one candidate node. (With overlapping
-\* rules the code as found keeps calling the replicator with an EMPTY candidate list: a holder remembered from
-\* an earlier rule does not lower the shortage of a later rule - a phantom shortage that copies nothing.)
-Replicates(d) == \E k \in 1..Len(d.tasks) : Len(d.tasks[k].nodes) > 0
-Quiet(hs) == \A n \in hs : LET d == Decide27(n, hs, {}, {}) IN ~Replicates(d) /\ d.del = "none"
-NoTasks(hs) == \A n \in hs : ~Replicates(Decide27(n, hs, {}, {}))
-,\* a check "replicates" when it hands the replicator a task with at least one candidate node. (With overlapping
-\* rules the code as found keeps calling the replicator with an EMPTY candidate list: a holder remembered from
-\* an earlier rule does not lower the shortage of a later rule - a phantom shortage that copies nothing.)
-Replicates(d) == \E k \in 1..Len(d.tasks) : Len(d.tasks[k].nodes) > 0
-Quiet(hs) == \A n \in hs : LET d == Decide27(n, hs, {}, {}) IN ~Replicates(d) /\ d.del = "none"
-NoTasks(hs) == \A n \in hs : ~Replicates(Decide27(n, hs, {}, {}))
- \* a check "replicates" when it hands the replicator a task with at least one candidate node. (With overlapping
-\* rules the code as found keeps calling the replicator with an EMPTY candidate list: a holder remembered from
-\* an earlier rule does not lower the shortage of a later rule - a phantom shortage that copies nothing.)
-Replicates(d) == \E k \in 1..Len(d.tasks) : Len(d.tasks[k].nodes) > 0
-Quiet(hs) == \A n \in hs : LET d == Decide27(n, hs, {}, {}) IN ~Replicates(d) /\ d.del = "none"
-NoTasks(hs) == \A n \in hs : ~Replicates(Decide27(n, hs, {}, {}))
-_\* a check "replicates" when it hands the replicator a task with at least one candidate node. (With overlapping
-\* rules the code as found keeps calling the replicator with an EMPTY candidate list: a holder remembered from
-\* an earlier rule does not lower the shortage of a later rule - a phantom shortage that copies nothing.)
-Replicates(d) == \E k \in 1..Len(d.tasks) : Len(d.tasks[k].nodes) > 0
-Quiet(hs) == \A n \in hs : LET d == Decide27(n, hs, {}, {}) IN ~Replicates(d) /\ d.del = "none"
-NoTasks(hs) == \A n \in hs : ~Replicates(Decide27(n, hs, {}, {}))
-,\* a check "replicates" when it hands the replicator a task with at least one candidate node. (With overlapping
-\* rules the code as found keeps calling the replicator with an EMPTY candidate list: a holder remembered from
-\* an earlier rule does not lower the shortage of a later rule - a phantom shortage that copies nothing.)
-Replicates(d) == \E k \in 1..Len(d.tasks) : Len(d.tasks[k].nodes) > 0
-Quiet(hs) == \A n \in hs : LET d == Decide27(n, hs, {}, {}) IN ~Replicates(d) /\ d.del = "none"
-NoTasks(hs) == \A n \in hs : ~Replicates(Decide27(n, hs, {}, {}))
- \* a check "replicates" when it hands the replicator a task with at least one candidate node. (With overlapping
-\* rules the code as found keeps calling the replicator with an EMPTY candidate list: a holder remembered from
-\* an earlier rule does not lower the shortage of a later rule - a phantom shortage that copies nothing.)
-Replicates(d) == \E k \in 1..Len(d.tasks) : Len(d.tasks[k].nodes) > 0
-Quiet(hs) == \A n \in hs : LET d == Decide27(n, hs, {}, {}) IN ~Replicates(d) /\ d.del = "none"
-NoTasks(hs) == \A n \in hs : ~Replicates(Decide27(n, hs, {}, {}))
-_\* a check "replicates" when it hands the replicator a task with at least one candidate node. (With overlapping
-\* rules the code as found keeps calling the replicator with an EMPTY candidate list: a holder remembered from
-\* an earlier rule does not lower the shortage of a later rule - a phantom shortage that copies nothing.)
-Replicates(d) == \E k \in 1..Len(d.tasks) : Len(d.tasks[k].nodes) > 0
-Quiet(hs) == \A n \in hs : LET d == Decide27(n, hs, {}, {}) IN ~Replicates(d) /\ d.del = "none"
-NoTasks(hs) == \A n \in hs : ~Replicates(Decide27(n, hs, {}, {}))
-)\* a check "replicates" when it hands the replicator a task with at least one candidate node. (With overlapping
-\* rules the code as found keeps calling the replicator with an EMPTY candidate list: a holder remembered from
-\* an earlier rule does not lower the shortage of a later rule - a phantom shortage that copies nothing.)
-Replicates(d) == \E k \in 1..Len(d.tasks) : Len(d.tasks[k].nodes) > 0
-Quiet(hs) == \A n \in hs : LET d == Decide27(n, hs, {}, {}) IN ~Replicates(d) /\ d.del = "none"
-NoTasks(hs) == \A n \in hs : ~Replicates(Decide27(n, hs, {}, {}))
-
-\* a check "replicates" when it hands the replicator a task with at least one candidate node. (With overlapping
-\* rules the code as found keeps calling the replicator with an EMPTY candidate list: a holder remembered from
-\* an earlier rule does not lower the shortage of a later rule - a phantom shortage that copies nothing.)
-Replicates(d) == \E k \in 1..Len(d.tasks) : Len(d.tasks[k].nodes) > 0
-Quiet(hs) == \A n \in hs : LET d == Decide27(n, hs, {}, {}) IN ~Replicates(d) /\ d.del = "none"
-NoTasks(hs) == \A n \in hs : ~Replicates(Decide27(n, hs, {}, {}))
-R\* a check "replicates" when it hands the replicator a task with at least one candidate node. (With overlapping
-\* rules the code as found keeps calling the replicator with an EMPTY candidate list: a holder remembered from
-\* an earlier rule does not lower the shortage of a later rule - a phantom shortage that copies nothing.)
-Replicates(d) == \E k \in 1..Len(d.tasks) : Len(d.tasks[k].nodes) > 0
-Quiet(hs) == \A n \in hs : LET d == Decide27(n, hs, {}, {}) IN ~Replicates(d) /\ d.del = "none"
-NoTasks(hs) == \A n \in hs : ~Replicates(Decide27(n, hs, {}, {}))
-e\* a check "replicates" when it hands the replicator a task with at least one candidate node. (With overlapping
-\* rules the code as found keeps calling the replicator with an EMPTY candidate list: a holder remembered from
-\* an earlier rule does not lower the shortage of a later rule - a phantom shortage that copies nothing.)
-Replicates(d) == \E k \in 1..Len(d.tasks) : Len(d.tasks[k].nodes) > 0
-Quiet(hs) == \A n \in hs : LET d == Decide27(n, hs, {}, {}) IN ~Replicates(d) /\ d.del = "none"
-NoTasks(hs) == \A n \in hs : ~Replicates(Decide27(n, hs, {}, {}))
-p\* a check "replicates" when it hands the replicator a task with at least one candidate node. (With overlapping
-\* rules the code as found keeps calling the replicator with an EMPTY candidate list: a holder remembered from
-\* an earlier rule does not lower the shortage of a later rule - a phantom shortage that copies nothing.)
-Replicates(d) == \E k \in 1..Len(d.tasks) : Len(d.tasks[k].nodes) > 0
-Quiet(hs) == \A n \in hs : LET d == Decide27(n, hs, {}, {}) IN ~Replicates(d) /\ d.del = "none"
-NoTasks(hs) == \A n \in hs : ~Replicates(Decide27(n, hs, {}, {}))
-l\* a check "replicates" when it hands the replicator a task with at least one candidate node. (With overlapping
-\* rules the code as found keeps calling the replicator with an EMPTY candidate list: a holder remembered from
-\* an earlier rule does not lower the shortage of a later rule - a phantom shortage that copies nothing.)
-Replicates(d) == \E k \in 1..Len(d.tasks) : Len(d.tasks[k].nodes) > 0
-Quiet(hs) == \A n \in hs : LET d == Decide27(n, hs, {}, {}) IN ~Replicates(d) /\ d.del = "none"
-NoTasks(hs) == \A n \in hs : ~Replicates(Decide27(n, hs, {}, {}))
-T\* a check "replicates" when it hands the replicator a task with at least one candidate node. (With overlapping
-\* rules the code as found keeps calling the replicator with an EMPTY candidate list: a holder remembered from
-\* an earlier rule does not lower the shortage of a later rule - a phantom shortage that copies nothing.)
-Replicates(d) == \E k \in 1..Len(d.tasks) : Len(d.tasks[k].nodes) > 0
-Quiet(hs) == \A n \in hs : LET d == Decide27(n, hs, {}, {}) IN ~Replicates(d) /\ d.del = "none"
-NoTasks(hs) == \A n \in hs : ~Replicates(Decide27(n, hs, {}, {}))
-(\* a check "replicates" when it hands the replicator a task with at least one candidate node. (With overlapping
-\* rules the code as found keeps calling the replicator with an EMPTY candidate list: a holder remembered from
-\* an earlier rule does not lower the shortage of a later rule - a phantom shortage that copies nothing.)
-Replicates(d) == \E k \in 1..Len(d.tasks) : Len(d.tasks[k].nodes) > 0
-Quiet(hs) == \A n \in hs : LET d == Decide27(n, hs, {}, {}) IN ~Replicates(d) /\ d.del = "none"
-NoTasks(hs) == \A n \in hs : ~Replicates(Decide27(n, hs, {}, {}))
-n\* a check "replicates" when it hands the replicator a task with at least one candidate node. (With overlapping
-\* rules the code as found keeps calling the replicator with an EMPTY candidate list: a holder remembered from
-\* an earlier rule does not lower the shortage of a later rule - a phantom shortage that copies nothing.)
-Replicates(d) == \E k \in 1..Len(d.tasks) : Len(d.tasks[k].nodes) > 0
-Quiet(hs) == \A n \in hs : LET d == Decide27(n, hs, {}, {}) IN ~Replicates(d) /\ d.del = "none"
-NoTasks(hs) == \A n \in hs : ~Replicates(Decide27(n, hs, {}, {}))
-,\* a check "replicates" when it hands the replicator a task with at least one candidate node. (With overlapping
-\* rules the code as found keeps calling the replicator with an EMPTY candidate list: a holder remembered from
-\* an earlier rule does not lower the shortage of a later rule - a phantom shortage that copies nothing.)
-Replicates(d) == \E k \in 1..Len(d.tasks) : Len(d.tasks[k].nodes) > 0
-Quiet(hs) == \A n \in hs : LET d == Decide27(n, hs, {}, {}) IN ~Replicates(d) /\ d.del = "none"
-NoTasks(hs) == \A n \in hs : ~Replicates(Decide27(n, hs, {}, {}))
- \* a check "replicates" when it hands the replicator a task with at least one candidate node. (With overlapping
-\* rules the code as found keeps calling the replicator with an EMPTY candidate list: a holder remembered from
-\* an earlier rule does not lower the shortage of a later rule - a phantom shortage that copies nothing.)
-Replicates(d) == \E k \in 1..Len(d.tasks) : Len(d.tasks[k].nodes) > 0
-Quiet(hs) == \A n \in hs : LET d == Decide27(n, hs, {}, {}) IN ~Replicates(d) /\ d.del = "none"
-NoTasks(hs) == \A n \in hs : ~Replicates(Decide27(n, hs, {}, {}))
-n\* a check "replicates" when it hands the replicator a task with at least one candidate node. (With overlapping
-\* rules the code as found keeps calling the replicator with an EMPTY candidate list: a holder remembered from
-\* an earlier rule does not lower the shortage of a later rule - a phantom shortage that copies nothing.)
-Replicates(d) == \E k \in 1..Len(d.tasks) : Len(d.tasks[k].nodes) > 0
-Quiet(hs) == \A n \in hs : LET d == Decide27(n, hs, {}, {}) IN ~Replicates(d) /\ d.del = "none"
-NoTasks(hs) == \A n \in hs : ~Replicates(Decide27(n, hs, {}, {}))
-o\* a check "replicates" when it hands the replicator a task with at least one candidate node. (With overlapping
-\* rules the code as found keeps calling the replicator with an EMPTY candidate list: a holder remembered from
-\* an earlier rule does not lower the shortage of a later rule - a phantom shortage that copies nothing.)
-Replicates(d) == \E k \in 1..Len(d.tasks) : Len(d.tasks[k].nodes) > 0
-Quiet(hs) == \A n \in hs : LET d == Decide27(n, hs, {}, {}) IN ~Replicates(d) /\ d.del = "none"
-NoTasks(hs) == \A n \in hs : ~Replicates(Decide27(n, hs, {}, {}))
-d\* a check "replicates" when it hands the replicator a task with at least one candidate node. (With overlapping
-\* rules the code as found keeps calling the replicator with an EMPTY candidate list: a holder remembered from
-\* an earlier rule does not lower the shortage of a later rule - a phantom shortage that copies nothing.)
-Replicates(d) == \E k \in 1..Len(d.tasks) : Len(d.tasks[k].nodes) > 0
-Quiet(hs) == \A n \in hs : LET d == Decide27(n, hs, {}, {}) IN ~Replicates(d) /\ d.del = "none"
-NoTasks(hs) == \A n \in hs : ~Replicates(Decide27(n, hs, {}, {}))
-e\* a check "replicates" when it hands the replicator a task with at least one candidate node. (With overlapping
-\* rules the code as found keeps calling the replicator with an EMPTY candidate list: a holder remembered from
-\* an earlier rule does not lower the shortage of a later rule - a phantom shortage that copies nothing.)
-Replicates(d) == \E k \in 1..Len(d.tasks) : Len(d.tasks[k].nodes) > 0
-Quiet(hs) == \A n \in hs : LET d == Decide27(n, hs, {}, {}) IN ~Replicates(d) /\ d.del = "none"
-NoTasks(hs) == \A n \in hs : ~Replicates(Decide27(n, hs, {}, {}))
-s\* a check "replicates" when it hands the replicator a task with at least one candidate node. (With overlapping
-\* rules the code as found keeps calling the replicator with an EMPTY candidate list: a holder remembered from
-\* an earlier rule does not lower the shortage of a later rule - a phantom shortage that copies nothing.)
-Replicates(d) == \E k \in 1..Len(d.tasks) : Len(d.tasks[k].nodes) > 0
-Quiet(hs) == \A n \in hs : LET d == Decide27(n, hs, {}, {}) IN ~Replicates(d) /\ d.del = "none"
-NoTasks(hs) == \A n \in hs : ~Replicates(Decide27(n, hs, {}, {}))
-,\* a check "replicates" when it hands the replicator a task with at least one candidate node. (With overlapping
-\* rules the code as found keeps calling the replicator with an EMPTY candidate list: a holder remembered from
-\* an earlier rule does not lower the shortage of a later rule - a phantom shortage that copies nothing.)
-Replicates(d) == \E k \in 1..Len(d.tasks) : Len(d.tasks[k].nodes) > 0
-Quiet(hs) == \A n \in hs : LET d == Decide27(n, hs, {}, {}) IN ~Replicates(d) /\ d.del = "none"
-NoTasks(hs) == \A n \in hs : ~Replicates(Decide27(n, hs, {}, {}))
- \* a check "replicates" when it hands the replicator a task with at least one candidate node. (With overlapping
-\* rules the code as found keeps calling the replicator with an EMPTY candidate list: a holder remembered from
-\* an earlier rule does not lower the shortage of a later rule - a phantom shortage that copies nothing.)
-Replicates(d) == \E k \in 1..Len(d.tasks) : Len(d.tasks[k].nodes) > 0
-Quiet(hs) == \A n \in hs : LET d == Decide27(n, hs, {}, {}) IN ~Replicates(d) /\ d.del = "none"
-NoTasks(hs) == \A n \in hs : ~Replicates(Decide27(n, hs, {}, {}))
-j\* a check "replicates" when it hands the replicator a task with at least one candidate node. (With overlapping
-\* rules the code as found keeps calling the replicator with an EMPTY candidate list: a holder remembered from
-\* an earlier rule does not lower the shortage of a later rule - a phantom shortage that copies nothing.)
-Replicates(d) == \E k \in 1..Len(d.tasks) : Len(d.tasks[k].nodes) > 0
-Quiet(hs) == \A n \in hs : LET d == Decide27(n, hs, {}, {}) IN ~Replicates(d) /\ d.del = "none"
-NoTasks(hs) == \A n \in hs : ~Replicates(Decide27(n, hs, {}, {}))
-,\* a check "replicates" when it hands the replicator a task with at least one candidate node. (With overlapping
-\* rules the code as found keeps calling the replicator with an EMPTY candidate list: a holder remembered from
-\* an earlier rule does not lower the shortage of a later rule - a phantom shortage that copies nothing.)
-Replicates(d) == \E k \in 1..Len(d.tasks) : Len(d.tasks[k].nodes) > 0
-Quiet(hs) == \A n \in hs : LET d == Decide27(n, hs, {}, {}) IN ~Replicates(d) /\ d.del = "none"
-NoTasks(hs) == \A n \in hs : ~Replicates(Decide27(n, hs, {}, {}))
- \* a check "replicates" when it hands the replicator a task with at least one candidate node. (With overlapping
-\* rules the code as found keeps calling the replicator with an EMPTY candidate list: a holder remembered from
-\* an earlier rule does not lower the shortage of a later rule - a phantom shortage that copies nothing.)
-Replicates(d) == \E k \in 1..Len(d.tasks) : Len(d.tasks[k].nodes) > 0
-Quiet(hs) == \A n \in hs : LET d == Decide27(n, hs, {}, {}) IN ~Replicates(d) /\ d.del = "none"
-NoTasks(hs) == \A n \in hs : ~Replicates(Decide27(n, hs, {}, {}))
-q\* a check "replicates" when it hands the replicator a task with at least one candidate node. (With overlapping
-\* rules the code as found keeps calling the replicator with an EMPTY candidate list: a holder remembered from
-\* an earlier rule does not lower the shortage of a later rule - a phantom shortage that copies nothing.)
-Replicates(d) == \E k \in 1..Len(d.tasks) : Len(d.tasks[k].nodes) > 0
-Quiet(hs) == \A n \in hs : LET d == Decide27(n, hs, {}, {}) IN ~Replicates(d) /\ d.del = "none"
-NoTasks(hs) == \A n \in hs : ~Replicates(Decide27(n, hs, {}, {}))
-,\* a check "replicates" when it hands the replicator a task with at least one candidate node. (With overlapping
-\* rules the code as found keeps calling the replicator with an EMPTY candidate list: a holder remembered from
-\* an earlier rule does not lower the shortage of a later rule - a phantom shortage that copies nothing.)
-Replicates(d) == \E k \in 1..Len(d.tasks) : Len(d.tasks[k].nodes) > 0
-Quiet(hs) == \A n \in hs : LET d == Decide27(n, hs, {}, {}) IN ~Replicates(d) /\ d.del = "none"
-NoTasks(hs) == \A n \in hs : ~Replicates(Decide27(n, hs, {}, {}))
- \* a check "replicates" when it hands the replicator a task with at least one candidate node. (With overlapping
-\* rules the code as found keeps calling the replicator with an EMPTY candidate list: a holder remembered from
-\* an earlier rule does not lower the shortage of a later rule - a phantom shortage that copies nothing.)
-Replicates(d) == \E k \in 1..Len(d.tasks) : Len(d.tasks[k].nodes) > 0
-Quiet(hs) == \A n \in hs : LET d == Decide27(n, hs, {}, {}) IN ~Replicates(d) /\ d.del = "none"
-NoTasks(hs) == \A n \in hs : ~Replicates(Decide27(n, hs, {}, {}))
-b\* a check "replicates" when it hands the replicator a task with at least one candidate node. (With overlapping
-\* rules the code as found keeps calling the replicator with an EMPTY candidate list: a holder remembered from
-\* an earlier rule does not lower the shortage of a later rule - a phantom shortage that copies nothing.)
-Replicates(d) == \E k \in 1..Len(d.tasks) : Len(d.tasks[k].nodes) > 0
-Quiet(hs) == \A n \in hs : LET d == Decide27(n, hs, {}, {}) IN ~Replicates(d) /\ d.del = "none"
-NoTasks(hs) == \A n \in hs : ~Replicates(Decide27(n, hs, {}, {}))
-a\* a check "replicates" when it hands the replicator a task with at least one candidate node. (With overlapping
-\* rules the code as found keeps calling the replicator with an EMPTY candidate list: a holder remembered from
-\* an earlier rule does not lower the shortage of a later rule - a phantom shortage that copies nothing.)
-Replicates(d) == \E k \in 1..Len(d.tasks) : Len(d.tasks[k].nodes) > 0
-Quiet(hs) == \A n \in hs : LET d == Decide27(n, hs, {}, {}) IN ~Replicates(d) /\ d.del = "none"
-NoTasks(hs) == \A n \in hs : ~Replicates(Decide27(n, hs, {}, {}))
-d\* a check "replicates" when it hands the replicator a task with at least one candidate node. (With overlapping
-\* rules the code as found keeps calling the replicator with an EMPTY candidate list: a holder remembered from
-\* an earlier rule does not lower the shortage of a later rule - a phantom shortage that copies nothing.)
-Replicates(d) == \E k \in 1..Len(d.tasks) : Len(d.tasks[k].nodes) > 0
-Quiet(hs) == \A n \in hs : LET d == Decide27(n, hs, {}, {}) IN ~Replicates(d) /\ d.del = "none"
-NoTasks(hs) == \A n \in hs : ~Replicates(Decide27(n, hs, {}, {}))
-,\* a check "replicates" when it hands the replicator a task with at least one candidate node. (With overlapping
-\* rules the code as found keeps calling the replicator with an EMPTY candidate list: a holder remembered from
-\* an earlier rule does not lower the shortage of a later rule - a phantom shortage that copies nothing.)
-Replicates(d) == \E k \in 1..Len(d.tasks) : Len(d.tasks[k].nodes) > 0
-Quiet(hs) == \A n \in hs : LET d == Decide27(n, hs, {}, {}) IN ~Replicates(d) /\ d.del = "none"
-NoTasks(hs) == \A n \in hs : ~Replicates(Decide27(n, hs, {}, {}))
- \* a check "replicates" when it hands the replicator a task with at least one candidate node. (With overlapping
-\* rules the code as found keeps calling the replicator with an EMPTY candidate list: a holder remembered from
-\* an earlier rule does not lower the shortage of a later rule - a phantom shortage that copies nothing.)
-Replicates(d) == \E k \in 1..Len(d.tasks) : Len(d.tasks[k].nodes) > 0
-Quiet(hs) == \A n \in hs : LET d == Decide27(n, hs, {}, {}) IN ~Replicates(d) /\ d.del = "none"
-NoTasks(hs) == \A n \in hs : ~Replicates(Decide27(n, hs, {}, {}))
-a\* a check "replicates" when it hands the replicator a task with at least one candidate node. (With overlapping
-\* rules the code as found keeps calling the replicator with an EMPTY candidate list: a holder remembered from
-\* an earlier rule does not lower the shortage of a later rule - a phantom shortage that copies nothing.)
-Replicates(d) == \E k \in 1..Len(d.tasks) : Len(d.tasks[k].nodes) > 0
-Quiet(hs) == \A n \in hs : LET d == Decide27(n, hs, {}, {}) IN ~Replicates(d) /\ d.del = "none"
-NoTasks(hs) == \A n \in hs : ~Replicates(Decide27(n, hs, {}, {}))
-c\* a check "replicates" when it hands the replicator a task with at least one candidate node. (With overlapping
-\* rules the code as found keeps calling the replicator with an EMPTY candidate list: a holder remembered from
-\* an earlier rule does not lower the shortage of a later rule - a phantom shortage that copies nothing.)
-Replicates(d) == \E k \in 1..Len(d.tasks) : Len(d.tasks[k].nodes) > 0
-Quiet(hs) == \A n \in hs : LET d == Decide27(n, hs, {}, {}) IN ~Replicates(d) /\ d.del = "none"
-NoTasks(hs) == \A n \in hs : ~Replicates(Decide27(n, hs, {}, {}))
-c\* a check "replicates" when it hands the replicator a task with at least one candidate node. (With overlapping
-\* rules the code as found keeps calling the replicator with an EMPTY candidate list: a holder remembered from
-\* an earlier rule does not lower the shortage of a later rule - a phantom shortage that copies nothing.)
-Replicates(d) == \E k \in 1..Len(d.tasks) : Len(d.tasks[k].nodes) > 0
-Quiet(hs) == \A n \in hs : LET d == Decide27(n, hs, {}, {}) IN ~Replicates(d) /\ d.del = "none"
-NoTasks(hs) == \A n \in hs : ~Replicates(Decide27(n, hs, {}, {}))
-)\* a check "replicates" when it hands the replicator a task with at least one candidate node. (With overlapping
-\* rules the code as found keeps calling the replicator with an EMPTY candidate list: a holder remembered from
-\* an earlier rule does not lower the shortage of a later rule - a phantom shortage that copies nothing.)
-Replicates(d) == \E k \in 1..Len(d.tasks) : Len(d.tasks[k].nodes) > 0
-Quiet(hs) == \A n \in hs : LET d == Decide27(n, hs, {}, {}) IN ~Replicates(d) /\ d.del = "none"
-NoTasks(hs) == \A n \in hs : ~Replicates(Decide27(n, hs, {}, {}))
- \* a check "replicates" when it hands the replicator a task with at least one candidate node. (With overlapping
-\* rules the code as found keeps calling the replicator with an EMPTY candidate list: a holder remembered from
-\* an earlier rule does not lower the shortage of a later rule - a phantom shortage that copies nothing.)
-Replicates(d) == \E k \in 1..Len(d.tasks) : Len(d.tasks[k].nodes) > 0
-Quiet(hs) == \A n \in hs : LET d == Decide27(n, hs, {}, {}) IN ~Replicates(d) /\ d.del = "none"
-NoTasks(hs) == \A n \in hs : ~Replicates(Decide27(n, hs, {}, {}))
-=\* a check "replicates" when it hands the replicator a task with at least one candidate node. (With overlapping
-\* rules the code as found keeps calling the replicator with an EMPTY candidate list: a holder remembered from
-\* an earlier rule does not lower the shortage of a later rule - a phantom shortage that copies nothing.)
-Replicates(d) == \E k \in 1..Len(d.tasks) : Len(d.tasks[k].nodes) > 0
-Quiet(hs) == \A n \in hs : LET d == Decide27(n, hs, {}, {}) IN ~Replicates(d) /\ d.del = "none"
-NoTasks(hs) == \A n \in hs : ~Replicates(Decide27(n, hs, {}, {}))
-=\* a check "replicates" when it hands the replicator a task with at least one candidate node. (With overlapping
-\* rules the code as found keeps calling the replicator with an EMPTY candidate list: a holder remembered from
-\* an earlier rule does not lower the shortage of a later rule - a phantom shortage that copies nothing.)
-Replicates(d) == \E k \in 1..Len(d.tasks) : Len(d.tasks[k].nodes) > 0
-Quiet(hs) == \A n \in hs : LET d == Decide27(n, hs, {}, {}) IN ~Replicates(d) /\ d.del = "none"
-NoTasks(hs) == \A n \in hs : ~Replicates(Decide27(n, hs, {}, {}))
-
-\* a check "replicates" when it hands the replicator a task with at least one candidate node. (With overlapping
-\* rules the code as found keeps calling the replicator with an EMPTY candidate list: a holder remembered from
-\* an earlier rule does not lower the shortage of a later rule - a phantom shortage that copies nothing.)
-Replicates(d) == \E k \in 1..Len(d.tasks) : Len(d.tasks[k].nodes) > 0
-Quiet(hs) == \A n \in hs : LET d == Decide27(n, hs, {}, {}) IN ~Replicates(d) /\ d.del = "none"
-NoTasks(hs) == \A n \in hs : ~Replicates(Decide27(n, hs, {}, {}))
- \* a check "replicates" when it hands the replicator a task with at least one candidate node. (With overlapping
-\* rules the code as found keeps calling the replicator with an EMPTY candidate list: a holder remembered from
-\* an earlier rule does not lower the shortage of a later rule - a phantom shortage that copies nothing.)
-Replicates(d) == \E k \in 1..Len(d.tasks) : Len(d.tasks[k].nodes) > 0
-Quiet(hs) == \A n \in hs : LET d == Decide27(n, hs, {}, {}) IN ~Replicates(d) /\ d.del = "none"
-NoTasks(hs) == \A n \in hs : ~Replicates(Decide27(n, hs, {}, {}))
- \* a check "replicates" when it hands the replicator a task with at least one candidate node. (With overlapping
-\* rules the code as found keeps calling the replicator with an EMPTY candidate list: a holder remembered from
-\* an earlier rule does not lower the shortage of a later rule - a phantom shortage that copies nothing.)
-Replicates(d) == \E k \in 1..Len(d.tasks) : Len(d.tasks[k].nodes) > 0
-Quiet(hs) == \A n \in hs : LET d == Decide27(n, hs, {}, {}) IN ~Replicates(d) /\ d.del = "none"
-NoTasks(hs) == \A n \in hs : ~Replicates(Decide27(n, hs, {}, {}))
-I\* a check "replicates" when it hands the replicator a task with at least one candidate node. (With overlapping
-\* rules the code as found keeps calling the replicator with an EMPTY candidate list: a holder remembered from
-\* an earlier rule does not lower the shortage of a later rule - a phantom shortage that copies nothing.)
-Replicates(d) == \E k \in 1..Len(d.tasks) : Len(d.tasks[k].nodes) > 0
-Quiet(hs) == \A n \in hs : LET d == Decide27(n, hs, {}, {}) IN ~Replicates(d) /\ d.del = "none"
-NoTasks(hs) == \A n \in hs : ~Replicates(Decide27(n, hs, {}, {}))
-F\* a check "replicates" when it hands the replicator a task with at least one candidate node. (With overlapping
-\* rules the code as found keeps calling the replicator with an EMPTY candidate list: a holder remembered from
-\* an earlier rule does not lower the shortage of a later rule - a phantom shortage that copies nothing.)
-Replicates(d) == \E k \in 1..Len(d.tasks) : Len(d.tasks[k].nodes) > 0
-Quiet(hs) == \A n \in hs : LET d == Decide27(n, hs, {}, {}) IN ~Replicates(d) /\ d.del = "none"
-NoTasks(hs) == \A n \in hs : ~Replicates(Decide27(n, hs, {}, {}))
- \* a check "replicates" when it hands the replicator a task with at least one candidate node. (With overlapping
-\* rules the code as found keeps calling the replicator with an EMPTY candidate list: a holder remembered from
-\* an earlier rule does not lower the shortage of a later rule - a phantom shortage that copies nothing.)
-Replicates(d) == \E k \in 1..Len(d.tasks) : Len(d.tasks[k].nodes) > 0
-Quiet(hs) == \A n \in hs : LET d == Decide27(n, hs, {}, {}) IN ~Replicates(d) /\ d.del = "none"
-NoTasks(hs) == \A n \in hs : ~Replicates(Decide27(n, hs, {}, {}))
-j\* a check "replicates" when it hands the replicator a task with at least one candidate node. (With overlapping
-\* rules the code as found keeps calling the replicator with an EMPTY candidate list: a holder remembered from
-\* an earlier rule does not lower the shortage of a later rule - a phantom shortage that copies nothing.)
-Replicates(d) == \E k \in 1..Len(d.tasks) : Len(d.tasks[k].nodes) > 0
-Quiet(hs) == \A n \in hs : LET d == Decide27(n, hs, {}, {}) IN ~Replicates(d) /\ d.del = "none"
-NoTasks(hs) == \A n \in hs : ~Replicates(Decide27(n, hs, {}, {}))
- \* a check "replicates" when it hands the replicator a task with at least one candidate node. (With overlapping
-\* rules the code as found keeps calling the replicator with an EMPTY candidate list: a holder remembered from
-\* an earlier rule does not lower the shortage of a later rule - a phantom shortage that copies nothing.)
-Replicates(d) == \E k \in 1..Len(d.tasks) : Len(d.tasks[k].nodes) > 0
-Quiet(hs) == \A n \in hs : LET d == Decide27(n, hs, {}, {}) IN ~Replicates(d) /\ d.del = "none"
-NoTasks(hs) == \A n \in hs : ~Replicates(Decide27(n, hs, {}, {}))
->\* a check "replicates" when it hands the replicator a task with at least one candidate node. (With overlapping
-\* rules the code as found keeps calling the replicator with an EMPTY candidate list: a holder remembered from
-\* an earlier rule does not lower the shortage of a later rule - a phantom shortage that copies nothing.)
-Replicates(d) == \E k \in 1..Len(d.tasks) : Len(d.tasks[k].nodes) > 0
-Quiet(hs) == \A n \in hs : LET d == Decide27(n, hs, {}, {}) IN ~Replicates(d) /\ d.del = "none"
-NoTasks(hs) == \A n \in hs : ~Replicates(Decide27(n, hs, {}, {}))
- \* a check "replicates" when it hands the replicator a task with at least one candidate node. (With overlapping
-\* rules the code as found keeps calling the replicator with an EMPTY candidate list: a holder remembered from
-\* an earlier rule does not lower the shortage of a later rule - a phantom shortage that copies nothing.)
-Replicates(d) == \E k \in 1..Len(d.tasks) : Len(d.tasks[k].nodes) > 0
-Quiet(hs) == \A n \in hs : LET d == Decide27(n, hs, {}, {}) IN ~Replicates(d) /\ d.del = "none"
-NoTasks(hs) == \A n \in hs : ~Replicates(Decide27(n, hs, {}, {}))
-L\* a check "replicates" when it hands the replicator a task with at least one candidate node. (With overlapping
-\* rules the code as found keeps calling the replicator with an EMPTY candidate list: a holder remembered from
-\* an earlier rule does not lower the shortage of a later rule - a phantom shortage that copies nothing.)
-Replicates(d) == \E k \in 1..Len(d.tasks) : Len(d.tasks[k].nodes) > 0
-Quiet(hs) == \A n \in hs : LET d == Decide27(n, hs, {}, {}) IN ~Replicates(d) /\ d.del = "none"
-NoTasks(hs) == \A n \in hs : ~Replicates(Decide27(n, hs, {}, {}))
-e\* a check "replicates" when it hands the replicator a task with at least one candidate node. (With overlapping
-\* rules the code as found keeps calling the replicator with an EMPTY candidate list: a holder remembered from
-\* an earlier rule does not lower the shortage of a later rule - a phantom shortage that copies nothing.)
-Replicates(d) == \E k \in 1..Len(d.tasks) : Len(d.tasks[k].nodes) > 0
-Quiet(hs) == \A n \in hs : LET d == Decide27(n, hs, {}, {}) IN ~Replicates(d) /\ d.del = "none"
-NoTasks(hs) == \A n \in hs : ~Replicates(Decide27(n, hs, {}, {}))
-n\* a check "replicates" when it hands the replicator a task with at least one candidate node. (With overlapping
-\* rules the code as found keeps calling the replicator with an EMPTY candidate list: a holder remembered from
-\* an earlier rule does not lower the shortage of a later rule - a phantom shortage that copies nothing.)
-Replicates(d) == \E k \in 1..Len(d.tasks) : Len(d.tasks[k].nodes) > 0
-Quiet(hs) == \A n \in hs : LET d == Decide27(n, hs, {}, {}) IN ~Replicates(d) /\ d.del = "none"
-NoTasks(hs) == \A n \in hs : ~Replicates(Decide27(n, hs, {}, {}))
-(\* a check "replicates" when it hands the replicator a task with at least one candidate node. (With overlapping
-\* rules the code as found keeps calling the replicator with an EMPTY candidate list: a holder remembered from
-\* an earlier rule does not lower the shortage of a later rule - a phantom shortage that copies nothing.)
-Replicates(d) == \E k \in 1..Len(d.tasks) : Len(d.tasks[k].nodes) > 0
-Quiet(hs) == \A n \in hs : LET d == Decide27(n, hs, {}, {}) IN ~Replicates(d) /\ d.del = "none"
-NoTasks(hs) == \A n \in hs : ~Replicates(Decide27(n, hs, {}, {}))
-n\* a check "replicates" when it hands the replicator a task with at least one candidate node. (With overlapping
-\* rules the code as found keeps calling the replicator with an EMPTY candidate list: a holder remembered from
-\* an earlier rule does not lower the shortage of a later rule - a phantom shortage that copies nothing.)
-Replicates(d) == \E k \in 1..Len(d.tasks) : Len(d.tasks[k].nodes) > 0
-Quiet(hs) == \A n \in hs : LET d == Decide27(n, hs, {}, {}) IN ~Replicates(d) /\ d.del = "none"
-NoTasks(hs) == \A n \in hs : ~Replicates(Decide27(n, hs, {}, {}))
-o\* a check "replicates" when it hands the replicator a task with at least one candidate node. (With overlapping
-\* rules the code as found keeps calling the replicator with an EMPTY candidate list: a holder remembered from
-\* an earlier rule does not lower the shortage of a later rule - a phantom shortage that copies nothing.)
-Replicates(d) == \E k \in 1..Len(d.tasks) : Len(d.tasks[k].nodes) > 0
-Quiet(hs) == \A n \in hs : LET d == Decide27(n, hs, {}, {}) IN ~Replicates(d) /\ d.del = "none"
-NoTasks(hs) == \A n \in hs : ~Replicates(Decide27(n, hs, {}, {}))
-d\* a check "replicates" when it hands the replicator a task with at least one candidate node. (With overlapping
-\* rules the code as found keeps calling the replicator with an EMPTY candidate list: a holder remembered from
-\* an earlier rule does not lower the shortage of a later rule - a phantom shortage that copies nothing.)
-Replicates(d) == \E k \in 1..Len(d.tasks) : Len(d.tasks[k].nodes) > 0
-Quiet(hs) == \A n \in hs : LET d == Decide27(n, hs, {}, {}) IN ~Replicates(d) /\ d.del = "none"
-NoTasks(hs) == \A n \in hs : ~Replicates(Decide27(n, hs, {}, {}))
-e\* a check "replicates" when it hands the replicator a task with at least one candidate node. (With overlapping
-\* rules the code as found keeps calling the replicator with an EMPTY candidate list: a holder remembered from
-\* an earlier rule does not lower the shortage of a later rule - a phantom shortage that copies nothing.)
-Replicates(d) == \E k \in 1..Len(d.tasks) : Len(d.tasks[k].nodes) > 0
-Quiet(hs) == \A n \in hs : LET d == Decide27(n, hs, {}, {}) IN ~Replicates(d) /\ d.del = "none"
-NoTasks(hs) == \A n \in hs : ~Replicates(Decide27(n, hs, {}, {}))
-s\* a check "replicates" when it hands the replicator a task with at least one candidate node. (With overlapping
-\* rules the code as found keeps calling the replicator with an EMPTY candidate list: a holder remembered from
-\* an earlier rule does not lower the shortage of a later rule - a phantom shortage that copies nothing.)
-Replicates(d) == \E k \in 1..Len(d.tasks) : Len(d.tasks[k].nodes) > 0
-Quiet(hs) == \A n \in hs : LET d == Decide27(n, hs, {}, {}) IN ~Replicates(d) /\ d.del = "none"
-NoTasks(hs) == \A n \in hs : ~Replicates(Decide27(n, hs, {}, {}))
-)\* a check "replicates" when it hands the replicator a task with at least one candidate node. (With overlapping
-\* rules the code as found keeps calling the replicator with an EMPTY candidate list: a holder remembered from
-\* an earlier rule does not lower the shortage of a later rule - a phantom shortage that copies nothing.)
-Replicates(d) == \E k \in 1..Len(d.tasks) : Len(d.tasks[k].nodes) > 0
-Quiet(hs) == \A n \in hs : LET d == Decide27(n, hs, {}, {}) IN ~Replicates(d) /\ d.del = "none"
-NoTasks(hs) == \A n \in hs : ~Replicates(Decide27(n, hs, {}, {}))
- \* a check "replicates" when it hands the replicator a task with at least one candidate node. (With overlapping
-\* rules the code as found keeps calling the replicator with an EMPTY candidate list: a holder remembered from
-\* an earlier rule does not lower the shortage of a later rule - a phantom shortage that copies nothing.)
-Replicates(d) == \E k \in 1..Len(d.tasks) : Len(d.tasks[k].nodes) > 0
-Quiet(hs) == \A n \in hs : LET d == Decide27(n, hs, {}, {}) IN ~Replicates(d) /\ d.del = "none"
-NoTasks(hs) == \A n \in hs : ~Replicates(Decide27(n, hs, {}, {}))
-\\* a check "replicates" when it hands the replicator a task with at least one candidate node. (With overlapping
-\* rules the code as found keeps calling the replicator with an EMPTY candidate list: a holder remembered from
-\* an earlier rule does not lower the shortage of a later rule - a phantom shortage that copies nothing.)
-Replicates(d) == \E k \in 1..Len(d.tasks) : Len(d.tasks[k].nodes) > 0
-Quiet(hs) == \A n \in hs : LET d == Decide27(n, hs, {}, {}) IN ~Replicates(d) /\ d.del = "none"
-NoTasks(hs) == \A n \in hs : ~Replicates(Decide27(n, hs, {}, {}))
-/\* a check "replicates" when it hands the replicator a task with at least one candidate node. (With overlapping
-\* rules the code as found keeps calling the replicator with an EMPTY candidate list: a holder remembered from
-\* an earlier rule does not lower the shortage of a later rule - a phantom shortage that copies nothing.)
-Replicates(d) == \E k \in 1..Len(d.tasks) : Len(d.tasks[k].nodes) > 0
-Quiet(hs) == \A n \in hs : LET d == Decide27(n, hs, {}, {}) IN ~Replicates(d) /\ d.del = "none"
-NoTasks(hs) == \A n \in hs : ~Replicates(Decide27(n, hs, {}, {}))
- \* a check "replicates" when it hands the replicator a task with at least one candidate node. (With overlapping
-\* rules the code as found keeps calling the replicator with an EMPTY candidate list: a holder remembered from
-\* an earlier rule does not lower the shortage of a later rule - a phantom shortage that copies nothing.)
-Replicates(d) == \E k \in 1..Len(d.tasks) : Len(d.tasks[k].nodes) > 0
-Quiet(hs) == \A n \in hs : LET d == Decide27(n, hs, {}, {}) IN ~Replicates(d) /\ d.del = "none"
-NoTasks(hs) == \A n \in hs : ~Replicates(Decide27(n, hs, {}, {}))
-q\* a check "replicates" when it hands the replicator a task with at least one candidate node. (With overlapping
-\* rules the code as found keeps calling the replicator with an EMPTY candidate list: a holder remembered from
-\* an earlier rule does not lower the shortage of a later rule - a phantom shortage that copies nothing.)
-Replicates(d) == \E k \in 1..Len(d.tasks) : Len(d.tasks[k].nodes) > 0
-Quiet(hs) == \A n \in hs : LET d == Decide27(n, hs, {}, {}) IN ~Replicates(d) /\ d.del = "none"
-NoTasks(hs) == \A n \in hs : ~Replicates(Decide27(n, hs, {}, {}))
- \* a check "replicates" when it hands the replicator a task with at least one candidate node. (With overlapping
-\* rules the code as found keeps calling the replicator with an EMPTY candidate list: a holder remembered from
-\* an earlier rule does not lower the shortage of a later rule - a phantom shortage that copies nothing.)
-Replicates(d) == \E k \in 1..Len(d.tasks) : Len(d.tasks[k].nodes) > 0
-Quiet(hs) == \A n \in hs : LET d == Decide27(n, hs, {}, {}) IN ~Replicates(d) /\ d.del = "none"
-NoTasks(hs) == \A n \in hs : ~Replicates(Decide27(n, hs, {}, {}))
-=\* a check "replicates" when it hands the replicator a task with at least one candidate node. (With overlapping
-\* rules the code as found keeps calling the replicator with an EMPTY candidate list: a holder remembered from
-\* an earlier rule does not lower the shortage of a later rule - a phantom shortage that copies nothing.)
-Replicates(d) == \E k \in 1..Len(d.tasks) : Len(d.tasks[k].nodes) > 0
-Quiet(hs) == \A n \in hs : LET d == Decide27(n, hs, {}, {}) IN ~Replicates(d) /\ d.del = "none"
-NoTasks(hs) == \A n \in hs : ~Replicates(Decide27(n, hs, {}, {}))
- \* a check "replicates" when it hands the replicator a task with at least one candidate node. (With overlapping
-\* rules the code as found keeps calling the replicator with an EMPTY candidate list: a holder remembered from
-\* an earlier rule does not lower the shortage of a later rule - a phantom shortage that copies nothing.)
-Replicates(d) == \E k \in 1..Len(d.tasks) : Len(d.tasks[k].nodes) > 0
-Quiet(hs) == \A n \in hs : LET d == Decide27(n, hs, {}, {}) IN ~Replicates(d) /\ d.del = "none"
-NoTasks(hs) == \A n \in hs : ~Replicates(Decide27(n, hs, {}, {}))
-0\* a check "replicates" when it hands the replicator a task with at least one candidate node. (With overlapping
-\* rules the code as found keeps calling the replicator with an EMPTY candidate list: a holder remembered from
-\* an earlier rule does not lower the shortage of a later rule - a phantom shortage that copies nothing.)
-Replicates(d) == \E k \in 1..Len(d.tasks) : Len(d.tasks[k].nodes) > 0
-Quiet(hs) == \A n \in hs : LET d == Decide27(n, hs, {}, {}) IN ~Replicates(d) /\ d.del = "none"
-NoTasks(hs) == \A n \in hs : ~Replicates(Decide27(n, hs, {}, {}))
- \* a check "replicates" when it hands the replicator a task with at least one candidate node. (With overlapping
-\* rules the code as found keeps calling the replicator with an EMPTY candidate list: a holder remembered from
-\* an earlier rule does not lower the shortage of a later rule - a phantom shortage that copies nothing.)
-Replicates(d) == \E k \in 1..Len(d.tasks) : Len(d.tasks[k].nodes) > 0
-Quiet(hs) == \A n \in hs : LET d == Decide27(n, hs, {}, {}) IN ~Replicates(d) /\ d.del = "none"
-NoTasks(hs) == \A n \in hs : ~Replicates(Decide27(n, hs, {}, {}))
-T\* a check "replicates" when it hands the replicator a task with at least one candidate node. (With overlapping
-\* rules the code as found keeps calling the replicator with an EMPTY candidate list: a holder remembered from
-\* an earlier rule does not lower the shortage of a later rule - a phantom shortage that copies nothing.)
-Replicates(d) == \E k \in 1..Len(d.tasks) : Len(d.tasks[k].nodes) > 0
-Quiet(hs) == \A n \in hs : LET d == Decide27(n, hs, {}, {}) IN ~Replicates(d) /\ d.del = "none"
-NoTasks(hs) == \A n \in hs : ~Replicates(Decide27(n, hs, {}, {}))
-H\* a check "replicates" when it hands the replicator a task with at least one candidate node. (With overlapping
-\* rules the code as found keeps calling the replicator with an EMPTY candidate list: a holder remembered from
-\* an earlier rule does not lower the shortage of a later rule - a phantom shortage that copies nothing.)
-Replicates(d) == \E k \in 1..Len(d.tasks) : Len(d.tasks[k].nodes) > 0
-Quiet(hs) == \A n \in hs : LET d == Decide27(n, hs, {}, {}) IN ~Replicates(d) /\ d.del = "none"
-NoTasks(hs) == \A n \in hs : ~Replicates(Decide27(n, hs, {}, {}))
-E\* a check "replicates" when it hands the replicator a task with at least one candidate node. (With overlapping
-\* rules the code as found keeps calling the replicator with an EMPTY candidate list: a holder remembered from
-\* an earlier rule does not lower the shortage of a later rule - a phantom shortage that copies nothing.)
-Replicates(d) == \E k \in 1..Len(d.tasks) : Len(d.tasks[k].nodes) > 0
-Quiet(hs) == \A n \in hs : LET d == Decide27(n, hs, {}, {}) IN ~Replicates(d) /\ d.del = "none"
-NoTasks(hs) == \A n \in hs : ~Replicates(Decide27(n, hs, {}, {}))
-N\* a check "replicates" when it hands the replicator a task with at least one candidate node. (With overlapping
-\* rules the code as found keeps calling the replicator with an EMPTY candidate list: a holder remembered from
-\* an earlier rule does not lower the shortage of a later rule - a phantom shortage that copies nothing.)
-Replicates(d) == \E k \in 1..Len(d.tasks) : Len(d.tasks[k].nodes) > 0
-Quiet(hs) == \A n \in hs : LET d == Decide27(n, hs, {}, {}) IN ~Replicates(d) /\ d.del = "none"
-NoTasks(hs) == \A n \in hs : ~Replicates(Decide27(n, hs, {}, {}))
- \* a check "replicates" when it hands the replicator a task with at least one candidate node. (With overlapping
-\* rules the code as found keeps calling the replicator with an EMPTY candidate list: a holder remembered from
-\* an earlier rule does not lower the shortage of a later rule - a phantom shortage that copies nothing.)
-Replicates(d) == \E k \in 1..Len(d.tasks) : Len(d.tasks[k].nodes) > 0
-Quiet(hs) == \A n \in hs : LET d == Decide27(n, hs, {}, {}) IN ~Replicates(d) /\ d.del = "none"
-NoTasks(hs) == \A n \in hs : ~Replicates(Decide27(n, hs, {}, {}))
-a\* a check "replicates" when it hands the replicator a task with at least one candidate node. (With overlapping
-\* rules the code as found keeps calling the replicator with an EMPTY candidate list: a holder remembered from
-\* an earlier rule does not lower the shortage of a later rule - a phantom shortage that copies nothing.)
-Replicates(d) == \E k \in 1..Len(d.tasks) : Len(d.tasks[k].nodes) > 0
-Quiet(hs) == \A n \in hs : LET d == Decide27(n, hs, {}, {}) IN ~Replicates(d) /\ d.del = "none"
-NoTasks(hs) == \A n \in hs : ~Replicates(Decide27(n, hs, {}, {}))
-c\* a check "replicates" when it hands the replicator a task with at least one candidate node. (With overlapping
-\* rules the code as found keeps calling the replicator with an EMPTY candidate list: a holder remembered from
-\* an earlier rule does not lower the shortage of a later rule - a phantom shortage that copies nothing.)
-Replicates(d) == \E k \in 1..Len(d.tasks) : Len(d.tasks[k].nodes) > 0
-Quiet(hs) == \A n \in hs : LET d == Decide27(n, hs, {}, {}) IN ~Replicates(d) /\ d.del = "none"
-NoTasks(hs) == \A n \in hs : ~Replicates(Decide27(n, hs, {}, {}))
-c\* a check "replicates" when it hands the replicator a task with at least one candidate node. (With overlapping
-\* rules the code as found keeps calling the replicator with an EMPTY candidate list: a holder remembered from
-\* an earlier rule does not lower the shortage of a later rule - a phantom shortage that copies nothing.)
-Replicates(d) == \E k \in 1..Len(d.tasks) : Len(d.tasks[k].nodes) > 0
-Quiet(hs) == \A n \in hs : LET d == Decide27(n, hs, {}, {}) IN ~Replicates(d) /\ d.del = "none"
-NoTasks(hs) == \A n \in hs : ~Replicates(Decide27(n, hs, {}, {}))
-
-\* a check "replicates" when it hands the replicator a task with at least one candidate node. (With overlapping
-\* rules the code as found keeps calling the replicator with an EMPTY candidate list: a holder remembered from
-\* an earlier rule does not lower the shortage of a later rule - a phantom shortage that copies nothing.)
-Replicates(d) == \E k \in 1..Len(d.tasks) : Len(d.tasks[k].nodes) > 0
-Quiet(hs) == \A n \in hs : LET d == Decide27(n, hs, {}, {}) IN ~Replicates(d) /\ d.del = "none"
-NoTasks(hs) == \A n \in hs : ~Replicates(Decide27(n, hs, {}, {}))
- \* a check "replicates" when it hands the replicator a task with at least one candidate node. (With overlapping
-\* rules the code as found keeps calling the replicator with an EMPTY candidate list: a holder remembered from
-\* an earlier rule does not lower the shortage of a later rule - a phantom shortage that copies nothing.)
-Replicates(d) == \E k \in 1..Len(d.tasks) : Len(d.tasks[k].nodes) > 0
-Quiet(hs) == \A n \in hs : LET d == Decide27(n, hs, {}, {}) IN ~Replicates(d) /\ d.del = "none"
-NoTasks(hs) == \A n \in hs : ~Replicates(Decide27(n, hs, {}, {}))
- \* a check "replicates" when it hands the replicator a task with at least one candidate node. (With overlapping
-\* rules the code as found keeps calling the replicator with an EMPTY candidate list: a holder remembered from
-\* an earlier rule does not lower the shortage of a later rule - a phantom shortage that copies nothing.)
-Replicates(d) == \E k \in 1..Len(d.tasks) : Len(d.tasks[k].nodes) > 0
-Quiet(hs) == \A n \in hs : LET d == Decide27(n, hs, {}, {}) IN ~Replicates(d) /\ d.del = "none"
-NoTasks(hs) == \A n \in hs : ~Replicates(Decide27(n, hs, {}, {}))
-E\* a check "replicates" when it hands the replicator a task with at least one candidate node. (With overlapping
-\* rules the code as found keeps calling the replicator with an EMPTY candidate list: a holder remembered from
-\* an earlier rule does not lower the shortage of a later rule - a phantom shortage that copies nothing.)
-Replicates(d) == \E k \in 1..Len(d.tasks) : Len(d.tasks[k].nodes) > 0
-Quiet(hs) == \A n \in hs : LET d == Decide27(n, hs, {}, {}) IN ~Replicates(d) /\ d.del = "none"
-NoTasks(hs) == \A n \in hs : ~Replicates(Decide27(n, hs, {}, {}))
-L\* a check "replicates" when it hands the replicator a task with at least one candidate node. (With overlapping
-\* rules the code as found keeps calling the replicator with an EMPTY candidate list: a holder remembered from
-\* an earlier rule does not lower the shortage of a later rule - a phantom shortage that copies nothing.)
-Replicates(d) == \E k \in 1..Len(d.tasks) : Len(d.tasks[k].nodes) > 0
-Quiet(hs) == \A n \in hs : LET d == Decide27(n, hs, {}, {}) IN ~Replicates(d) /\ d.del = "none"
-NoTasks(hs) == \A n \in hs : ~Replicates(Decide27(n, hs, {}, {}))
-S\* a check "replicates" when it hands the replicator a task with at least one candidate node. (With overlapping
-\* rules the code as found keeps calling the replicator with an EMPTY candidate list: a holder remembered from
-\* an earlier rule does not lower the shortage of a later rule - a phantom shortage that copies nothing.)
-Replicates(d) == \E k \in 1..Len(d.tasks) : Len(d.tasks[k].nodes) > 0
-Quiet(hs) == \A n \in hs : LET d == Decide27(n, hs, {}, {}) IN ~Replicates(d) /\ d.del = "none"
-NoTasks(hs) == \A n \in hs : ~Replicates(Decide27(n, hs, {}, {}))
-E\* a check "replicates" when it hands the replicator a task with at least one candidate node. (With overlapping
-\* rules the code as found keeps calling the replicator with an EMPTY candidate list: a holder remembered from
-\* an earlier rule does not lower the shortage of a later rule - a phantom shortage that copies nothing.)
-Replicates(d) == \E k \in 1..Len(d.tasks) : Len(d.tasks[k].nodes) > 0
-Quiet(hs) == \A n \in hs : LET d == Decide27(n, hs, {}, {}) IN ~Replicates(d) /\ d.del = "none"
-NoTasks(hs) == \A n \in hs : ~Replicates(Decide27(n, hs, {}, {}))
- \* a check "replicates" when it hands the replicator a task with at least one candidate node. (With overlapping
-\* rules the code as found keeps calling the replicator with an EMPTY candidate list: a holder remembered from
-\* an earlier rule does not lower the shortage of a later rule - a phantom shortage that copies nothing.)
-Replicates(d) == \E k \in 1..Len(d.tasks) : Len(d.tasks[k].nodes) > 0
-Quiet(hs) == \A n \in hs : LET d == Decide27(n, hs, {}, {}) IN ~Replicates(d) /\ d.del = "none"
-NoTasks(hs) == \A n \in hs : ~Replicates(Decide27(n, hs, {}, {}))
-I\* a check "replicates" when it hands the replicator a task with at least one candidate node. (With overlapping
-\* rules the code as found keeps calling the replicator with an EMPTY candidate list: a holder remembered from
-\* an earlier rule does not lower the shortage of a later rule - a phantom shortage that copies nothing.)
-Replicates(d) == \E k \in 1..Len(d.tasks) : Len(d.tasks[k].nodes) > 0
-Quiet(hs) == \A n \in hs : LET d == Decide27(n, hs, {}, {}) IN ~Replicates(d) /\ d.del = "none"
-NoTasks(hs) == \A n \in hs : ~Replicates(Decide27(n, hs, {}, {}))
-F\* a check "replicates" when it hands the replicator a task with at least one candidate node. (With overlapping
-\* rules the code as found keeps calling the replicator with an EMPTY candidate list: a holder remembered from
-\* an earlier rule does not lower the shortage of a later rule - a phantom shortage that copies nothing.)
-Replicates(d) == \E k \in 1..Len(d.tasks) : Len(d.tasks[k].nodes) > 0
-Quiet(hs) == \A n \in hs : LET d == Decide27(n, hs, {}, {}) IN ~Replicates(d) /\ d.del = "none"
-NoTasks(hs) == \A n \in hs : ~Replicates(Decide27(n, hs, {}, {}))
- \* a check "replicates" when it hands the replicator a task with at least one candidate node. (With overlapping
-\* rules the code as found keeps calling the replicator with an EMPTY candidate list: a holder remembered from
-\* an earlier rule does not lower the shortage of a later rule - a phantom shortage that copies nothing.)
-Replicates(d) == \E k \in 1..Len(d.tasks) : Len(d.tasks[k].nodes) > 0
-Quiet(hs) == \A n \in hs : LET d == Decide27(n, hs, {}, {}) IN ~Replicates(d) /\ d.del = "none"
-NoTasks(hs) == \A n \in hs : ~Replicates(Decide27(n, hs, {}, {}))
-n\* a check "replicates" when it hands the replicator a task with at least one candidate node. (With overlapping
-\* rules the code as found keeps calling the replicator with an EMPTY candidate list: a holder remembered from
-\* an earlier rule does not lower the shortage of a later rule - a phantom shortage that copies nothing.)
-Replicates(d) == \E k \in 1..Len(d.tasks) : Len(d.tasks[k].nodes) > 0
-Quiet(hs) == \A n \in hs : LET d == Decide27(n, hs, {}, {}) IN ~Replicates(d) /\ d.del = "none"
-NoTasks(hs) == \A n \in hs : ~Replicates(Decide27(n, hs, {}, {}))
-o\* a check "replicates" when it hands the replicator a task with at least one candidate node. (With overlapping
-\* rules the code as found keeps calling the replicator with an EMPTY candidate list: a holder remembered from
-\* an earlier rule does not lower the shortage of a later rule - a phantom shortage that copies nothing.)
-Replicates(d) == \E k \in 1..Len(d.tasks) : Len(d.tasks[k].nodes) > 0
-Quiet(hs) == \A n \in hs : LET d == Decide27(n, hs, {}, {}) IN ~Replicates(d) /\ d.del = "none"
-NoTasks(hs) == \A n \in hs : ~Replicates(Decide27(n, hs, {}, {}))
-d\* a check "replicates" when it hands the replicator a task with at least one candidate node. (With overlapping
-\* rules the code as found keeps calling the replicator with an EMPTY candidate list: a holder remembered from
-\* an earlier rule does not lower the shortage of a later rule - a phantom shortage that copies nothing.)
-Replicates(d) == \E k \in 1..Len(d.tasks) : Len(d.tasks[k].nodes) > 0
-Quiet(hs) == \A n \in hs : LET d == Decide27(n, hs, {}, {}) IN ~Replicates(d) /\ d.del = "none"
-NoTasks(hs) == \A n \in hs : ~Replicates(Decide27(n, hs, {}, {}))
-e\* a check "replicates" when it hands the replicator a task with at least one candidate node. (With overlapping
-\* rules the code as found keeps calling the replicator with an EMPTY candidate list: a holder remembered from
-\* an earlier rule does not lower the shortage of a later rule - a phantom shortage that copies nothing.)
-Replicates(d) == \E k \in 1..Len(d.tasks) : Len(d.tasks[k].nodes) > 0
-Quiet(hs) == \A n \in hs : LET d == Decide27(n, hs, {}, {}) IN ~Replicates(d) /\ d.del = "none"
-NoTasks(hs) == \A n \in hs : ~Replicates(Decide27(n, hs, {}, {}))
-s\* a check "replicates" when it hands the replicator a task with at least one candidate node. (With overlapping
-\* rules the code as found keeps calling the replicator with an EMPTY candidate list: a holder remembered from
-\* an earlier rule does not lower the shortage of a later rule - a phantom shortage that copies nothing.)
-Replicates(d) == \E k \in 1..Len(d.tasks) : Len(d.tasks[k].nodes) > 0
-Quiet(hs) == \A n \in hs : LET d == Decide27(n, hs, {}, {}) IN ~Replicates(d) /\ d.del = "none"
-NoTasks(hs) == \A n \in hs : ~Replicates(Decide27(n, hs, {}, {}))
-[\* a check "replicates" when it hands the replicator a task with at least one candidate node. (With overlapping
-\* rules the code as found keeps calling the replicator with an EMPTY candidate list: a holder remembered from
-\* an earlier rule does not lower the shortage of a later rule - a phantom shortage that copies nothing.)
-Replicates(d) == \E k \in 1..Len(d.tasks) : Len(d.tasks[k].nodes) > 0
-Quiet(hs) == \A n \in hs : LET d == Decide27(n, hs, {}, {}) IN ~Replicates(d) /\ d.del = "none"
-NoTasks(hs) == \A n \in hs : ~Replicates(Decide27(n, hs, {}, {}))
-j\* a check "replicates" when it hands the replicator a task with at least one candidate node. (With overlapping
-\* rules the code as found keeps calling the replicator with an EMPTY candidate list: a holder remembered from
-\* an earlier rule does not lower the shortage of a later rule - a phantom shortage that copies nothing.)
-Replicates(d) == \E k \in 1..Len(d.tasks) : Len(d.tasks[k].nodes) > 0
-Quiet(hs) == \A n \in hs : LET d == Decide27(n, hs, {}, {}) IN ~Replicates(d) /\ d.del = "none"
-NoTasks(hs) == \A n \in hs : ~Replicates(Decide27(n, hs, {}, {}))
-]\* a check "replicates" when it hands the replicator a task with at least one candidate node. (With overlapping
-\* rules the code as found keeps calling the replicator with an EMPTY candidate list: a holder remembered from
-\* an earlier rule does not lower the shortage of a later rule - a phantom shortage that copies nothing.)
-Replicates(d) == \E k \in 1..Len(d.tasks) : Len(d.tasks[k].nodes) > 0
-Quiet(hs) == \A n \in hs : LET d == Decide27(n, hs, {}, {}) IN ~Replicates(d) /\ d.del = "none"
-NoTasks(hs) == \A n \in hs : ~Replicates(Decide27(n, hs, {}, {}))
- \* a check "replicates" when it hands the replicator a task with at least one candidate node. (With overlapping
-\* rules the code as found keeps calling the replicator with an EMPTY candidate list: a holder remembered from
-\* an earlier rule does not lower the shortage of a later rule - a phantom shortage that copies nothing.)
-Replicates(d) == \E k \in 1..Len(d.tasks) : Len(d.tasks[k].nodes) > 0
-Quiet(hs) == \A n \in hs : LET d == Decide27(n, hs, {}, {}) IN ~Replicates(d) /\ d.del = "none"
-NoTasks(hs) == \A n \in hs : ~Replicates(Decide27(n, hs, {}, {}))
-=\* a check "replicates" when it hands the replicator a task with at least one candidate node. (With overlapping
-\* rules the code as found keeps calling the replicator with an EMPTY candidate list: a holder remembered from
-\* an earlier rule does not lower the shortage of a later rule - a phantom shortage that copies nothing.)
-Replicates(d) == \E k \in 1..Len(d.tasks) : Len(d.tasks[k].nodes) > 0
-Quiet(hs) == \A n \in hs : LET d == Decide27(n, hs, {}, {}) IN ~Replicates(d) /\ d.del = "none"
-NoTasks(hs) == \A n \in hs : ~Replicates(Decide27(n, hs, {}, {}))
- \* a check "replicates" when it hands the replicator a task with at least one candidate node. (With overlapping
-\* rules the code as found keeps calling the replicator with an EMPTY candidate list: a holder remembered from
-\* an earlier rule does not lower the shortage of a later rule - a phantom shortage that copies nothing.)
-Replicates(d) == \E k \in 1..Len(d.tasks) : Len(d.tasks[k].nodes) > 0
-Quiet(hs) == \A n \in hs : LET d == Decide27(n, hs, {}, {}) IN ~Replicates(d) /\ d.del = "none"
-NoTasks(hs) == \A n \in hs : ~Replicates(Decide27(n, hs, {}, {}))
-n\* a check "replicates" when it hands the replicator a task with at least one candidate node. (With overlapping
-\* rules the code as found keeps calling the replicator with an EMPTY candidate list: a holder remembered from
-\* an earlier rule does not lower the shortage of a later rule - a phantom shortage that copies nothing.)
-Replicates(d) == \E k \in 1..Len(d.tasks) : Len(d.tasks[k].nodes) > 0
-Quiet(hs) == \A n \in hs : LET d == Decide27(n, hs, {}, {}) IN ~Replicates(d) /\ d.del = "none"
-NoTasks(hs) == \A n \in hs : ~Replicates(Decide27(n, hs, {}, {}))
- \* a check "replicates" when it hands the replicator a task with at least one candidate node. (With overlapping
-\* rules the code as found keeps calling the replicator with an EMPTY candidate list: a holder remembered from
-\* an earlier rule does not lower the shortage of a later rule - a phantom shortage that copies nothing.)
-Replicates(d) == \E k \in 1..Len(d.tasks) : Len(d.tasks[k].nodes) > 0
-Quiet(hs) == \A n \in hs : LET d == Decide27(n, hs, {}, {}) IN ~Replicates(d) /\ d.del = "none"
-NoTasks(hs) == \A n \in hs : ~Replicates(Decide27(n, hs, {}, {}))
-\\* a check "replicates" when it hands the replicator a task with at least one candidate node. (With overlapping
-\* rules the code as found keeps calling the replicator with an EMPTY candidate list: a holder remembered from
-\* an earlier rule does not lower the shortage of a later rule - a phantom shortage that copies nothing.)
-Replicates(d) == \E k \in 1..Len(d.tasks) : Len(d.tasks[k].nodes) > 0
-Quiet(hs) == \A n \in hs : LET d == Decide27(n, hs, {}, {}) IN ~Replicates(d) /\ d.del = "none"
-NoTasks(hs) == \A n \in hs : ~Replicates(Decide27(n, hs, {}, {}))
-/\* a check "replicates" when it hands the replicator a task with at least one candidate node. (With overlapping
-\* rules the code as found keeps calling the replicator with an EMPTY candidate list: a holder remembered from
-\* an earlier rule does not lower the shortage of a later rule - a phantom shortage that copies nothing.)
-Replicates(d) == \E k \in 1..Len(d.tasks) : Len(d.tasks[k].nodes) > 0
-Quiet(hs) == \A n \in hs : LET d == Decide27(n, hs, {}, {}) IN ~Replicates(d) /\ d.del = "none"
-NoTasks(hs) == \A n \in hs : ~Replicates(Decide27(n, hs, {}, {}))
- \* a check "replicates" when it hands the replicator a task with at least one candidate node. (With overlapping
-\* rules the code as found keeps calling the replicator with an EMPTY candidate list: a holder remembered from
-\* an earlier rule does not lower the shortage of a later rule - a phantom shortage that copies nothing.)
-Replicates(d) == \E k \in 1..Len(d.tasks) : Len(d.tasks[k].nodes) > 0
-Quiet(hs) == \A n \in hs : LET d == Decide27(n, hs, {}, {}) IN ~Replicates(d) /\ d.del = "none"
-NoTasks(hs) == \A n \in hs : ~Replicates(Decide27(n, hs, {}, {}))
-n\* a check "replicates" when it hands the replicator a task with at least one candidate node. (With overlapping
-\* rules the code as found keeps calling the replicator with an EMPTY candidate list: a holder remembered from
-\* an earlier rule does not lower the shortage of a later rule - a phantom shortage that copies nothing.)
-Replicates(d) == \E k \in 1..Len(d.tasks) : Len(d.tasks[k].nodes) > 0
-Quiet(hs) == \A n \in hs : LET d == Decide27(n, hs, {}, {}) IN ~Replicates(d) /\ d.del = "none"
-NoTasks(hs) == \A n \in hs : ~Replicates(Decide27(n, hs, {}, {}))
-o\* a check "replicates" when it hands the replicator a task with at least one candidate node. (With overlapping
-\* rules the code as found keeps calling the replicator with an EMPTY candidate list: a holder remembered from
-\* an earlier rule does not lower the shortage of a later rule - a phantom shortage that copies nothing.)
-Replicates(d) == \E k \in 1..Len(d.tasks) : Len(d.tasks[k].nodes) > 0
-Quiet(hs) == \A n \in hs : LET d == Decide27(n, hs, {}, {}) IN ~Replicates(d) /\ d.del = "none"
-NoTasks(hs) == \A n \in hs : ~Replicates(Decide27(n, hs, {}, {}))
-d\* a check "replicates" when it hands the replicator a task with at least one candidate node. (With overlapping
-\* rules the code as found keeps calling the replicator with an EMPTY candidate list: a holder remembered from
-\* an earlier rule does not lower the shortage of a later rule - a phantom shortage that copies nothing.)
-Replicates(d) == \E k \in 1..Len(d.tasks) : Len(d.tasks[k].nodes) > 0
-Quiet(hs) == \A n \in hs : LET d == Decide27(n, hs, {}, {}) IN ~Replicates(d) /\ d.del = "none"
-NoTasks(hs) == \A n \in hs : ~Replicates(Decide27(n, hs, {}, {}))
-e\* a check "replicates" when it hands the replicator a task with at least one candidate node. (With overlapping
-\* rules the code as found keeps calling the replicator with an EMPTY candidate list: a holder remembered from
-\* an earlier rule does not lower the shortage of a later rule - a phantom shortage that copies nothing.)
-Replicates(d) == \E k \in 1..Len(d.tasks) : Len(d.tasks[k].nodes) > 0
-Quiet(hs) == \A n \in hs : LET d == Decide27(n, hs, {}, {}) IN ~Replicates(d) /\ d.del = "none"
-NoTasks(hs) == \A n \in hs : ~Replicates(Decide27(n, hs, {}, {}))
-s\* a check "replicates" when it hands the replicator a task with at least one candidate node. (With overlapping
-\* rules the code as found keeps calling the replicator with an EMPTY candidate list: a holder remembered from
-\* an earlier rule does not lower the shortage of a later rule - a phantom shortage that copies nothing.)
-Replicates(d) == \E k \in 1..Len(d.tasks) : Len(d.tasks[k].nodes) > 0
-Quiet(hs) == \A n \in hs : LET d == Decide27(n, hs, {}, {}) IN ~Replicates(d) /\ d.del = "none"
-NoTasks(hs) == \A n \in hs : ~Replicates(Decide27(n, hs, {}, {}))
-[\* a check "replicates" when it hands the replicator a task with at least one candidate node. (With overlapping
-\* rules the code as found keeps calling the replicator with an EMPTY candidate list: a holder remembered from
-\* an earlier rule does not lower the shortage of a later rule - a phantom shortage that copies nothing.)
-Replicates(d) == \E k \in 1..Len(d.tasks) : Len(d.tasks[k].nodes) > 0
-Quiet(hs) == \A n \in hs : LET d == Decide27(n, hs, {}, {}) IN ~Replicates(d) /\ d.del = "none"
-NoTasks(hs) == \A n \in hs : ~Replicates(Decide27(n, hs, {}, {}))
-j\* a check "replicates" when it hands the replicator a task with at least one candidate node. (With overlapping
-\* rules the code as found keeps calling the replicator with an EMPTY candidate list: a holder remembered from
-\* an earlier rule does not lower the shortage of a later rule - a phantom shortage that copies nothing.)
-Replicates(d) == \E k \in 1..Len(d.tasks) : Len(d.tasks[k].nodes) > 0
-Quiet(hs) == \A n \in hs : LET d == Decide27(n, hs, {}, {}) IN ~Replicates(d) /\ d.del = "none"
-NoTasks(hs) == \A n \in hs : ~Replicates(Decide27(n, hs, {}, {}))
-]\* a check "replicates" when it hands the replicator a task with at least one candidate node. (With overlapping
-\* rules the code as found keeps calling the replicator with an EMPTY candidate list: a holder remembered from
-\* an earlier rule does not lower the shortage of a later rule - a phantom shortage that copies nothing.)
-Replicates(d) == \E k \in 1..Len(d.tasks) : Len(d.tasks[k].nodes) > 0
-Quiet(hs) == \A n \in hs : LET d == Decide27(n, hs, {}, {}) IN ~Replicates(d) /\ d.del = "none"
-NoTasks(hs) == \A n \in hs : ~Replicates(Decide27(n, hs, {}, {}))
- \* a check "replicates" when it hands the replicator a task with at least one candidate node. (With overlapping
-\* rules the code as found keeps calling the replicator with an EMPTY candidate list: a holder remembered from
-\* an earlier rule does not lower the shortage of a later rule - a phantom shortage that copies nothing.)
-Replicates(d) == \E k \in 1..Len(d.tasks) : Len(d.tasks[k].nodes) > 0
-Quiet(hs) == \A n \in hs : LET d == Decide27(n, hs, {}, {}) IN ~Replicates(d) /\ d.del = "none"
-NoTasks(hs) == \A n \in hs : ~Replicates(Decide27(n, hs, {}, {}))
-\\* a check "replicates" when it hands the replicator a task with at least one candidate node. (With overlapping
-\* rules the code as found keeps calling the replicator with an EMPTY candidate list: a holder remembered from
-\* an earlier rule does not lower the shortage of a later rule - a phantom shortage that copies nothing.)
-Replicates(d) == \E k \in 1..Len(d.tasks) : Len(d.tasks[k].nodes) > 0
-Quiet(hs) == \A n \in hs : LET d == Decide27(n, hs, {}, {}) IN ~Replicates(d) /\ d.del = "none"
-NoTasks(hs) == \A n \in hs : ~Replicates(Decide27(n, hs, {}, {}))
-n\* a check "replicates" when it hands the replicator a task with at least one candidate node. (With overlapping
-\* rules the code as found keeps calling the replicator with an EMPTY candidate list: a holder remembered from
-\* an earlier rule does not lower the shortage of a later rule - a phantom shortage that copies nothing.)
-Replicates(d) == \E k \in 1..Len(d.tasks) : Len(d.tasks[k].nodes) > 0
-Quiet(hs) == \A n \in hs : LET d == Decide27(n, hs, {}, {}) IN ~Replicates(d) /\ d.del = "none"
-NoTasks(hs) == \A n \in hs : ~Replicates(Decide27(n, hs, {}, {}))
-o\* a check "replicates" when it hands the replicator a task with at least one candidate node. (With overlapping
-\* rules the code as found keeps calling the replicator with an EMPTY candidate list: a holder remembered from
-\* an earlier rule does not lower the shortage of a later rule - a phantom shortage that copies nothing.)
-Replicates(d) == \E k \in 1..Len(d.tasks) : Len(d.tasks[k].nodes) > 0
-Quiet(hs) == \A n \in hs : LET d == Decide27(n, hs, {}, {}) IN ~Replicates(d) /\ d.del = "none"
-NoTasks(hs) == \A n \in hs : ~Replicates(Decide27(n, hs, {}, {}))
-t\* a check "replicates" when it hands the replicator a task with at least one candidate node. (With overlapping
-\* rules the code as found keeps calling the replicator with an EMPTY candidate list: a holder remembered from
-\* an earlier rule does not lower the shortage of a later rule - a phantom shortage that copies nothing.)
-Replicates(d) == \E k \in 1..Len(d.tasks) : Len(d.tasks[k].nodes) > 0
-Quiet(hs) == \A n \in hs : LET d == Decide27(n, hs, {}, {}) IN ~Replicates(d) /\ d.del = "none"
-NoTasks(hs) == \A n \in hs : ~Replicates(Decide27(n, hs, {}, {}))
-i\* a check "replicates" when it hands the replicator a task with at least one candidate node. (With overlapping
-\* rules the code as found keeps calling the replicator with an EMPTY candidate list: a holder remembered from
-\* an earlier rule does not lower the shortage of a later rule - a phantom shortage that copies nothing.)
-Replicates(d) == \E k \in 1..Len(d.tasks) : Len(d.tasks[k].nodes) > 0
-Quiet(hs) == \A n \in hs : LET d == Decide27(n, hs, {}, {}) IN ~Replicates(d) /\ d.del = "none"
-NoTasks(hs) == \A n \in hs : ~Replicates(Decide27(n, hs, {}, {}))
-n\* a check "replicates" when it hands the replicator a task with at least one candidate node. (With overlapping
-\* rules the code as found keeps calling the replicator with an EMPTY candidate list: a holder remembered from
-\* an earlier rule does not lower the shortage of a later rule - a phantom shortage that copies nothing.)
-Replicates(d) == \E k \in 1..Len(d.tasks) : Len(d.tasks[k].nodes) > 0
-Quiet(hs) == \A n \in hs : LET d == Decide27(n, hs, {}, {}) IN ~Replicates(d) /\ d.del = "none"
-NoTasks(hs) == \A n \in hs : ~Replicates(Decide27(n, hs, {}, {}))
- \* a check "replicates" when it hands the replicator a task with at least one candidate node. (With overlapping
-\* rules the code as found keeps calling the replicator with an EMPTY candidate list: a holder remembered from
-\* an earlier rule does not lower the shortage of a later rule - a phantom shortage that copies nothing.)
-Replicates(d) == \E k \in 1..Len(d.tasks) : Len(d.tasks[k].nodes) > 0
-Quiet(hs) == \A n \in hs : LET d == Decide27(n, hs, {}, {}) IN ~Replicates(d) /\ d.del = "none"
-NoTasks(hs) == \A n \in hs : ~Replicates(Decide27(n, hs, {}, {}))
-b\* a check "replicates" when it hands the replicator a task with at least one candidate node. (With overlapping
-\* rules the code as found keeps calling the replicator with an EMPTY candidate list: a holder remembered from
-\* an earlier rule does not lower the shortage of a later rule - a phantom shortage that copies nothing.)
-Replicates(d) == \E k \in 1..Len(d.tasks) : Len(d.tasks[k].nodes) > 0
-Quiet(hs) == \A n \in hs : LET d == Decide27(n, hs, {}, {}) IN ~Replicates(d) /\ d.del = "none"
-NoTasks(hs) == \A n \in hs : ~Replicates(Decide27(n, hs, {}, {}))
-a\* a check "replicates" when it hands the replicator a task with at least one candidate node. (With overlapping
-\* rules the code as found keeps calling the replicator with an EMPTY candidate list: a holder remembered from
-\* an earlier rule does not lower the shortage of a later rule - a phantom shortage that copies nothing.)
-Replicates(d) == \E k \in 1..Len(d.tasks) : Len(d.tasks[k].nodes) > 0
-Quiet(hs) == \A n \in hs : LET d == Decide27(n, hs, {}, {}) IN ~Replicates(d) /\ d.del = "none"
-NoTasks(hs) == \A n \in hs : ~Replicates(Decide27(n, hs, {}, {}))
-d\* a check "replicates" when it hands the replicator a task with at least one candidate node. (With overlapping
-\* rules the code as found keeps calling the replicator with an EMPTY candidate list: a holder remembered from
-\* an earlier rule does not lower the shortage of a later rule - a phantom shortage that copies nothing.)
-Replicates(d) == \E k \in 1..Len(d.tasks) : Len(d.tasks[k].nodes) > 0
-Quiet(hs) == \A n \in hs : LET d == Decide27(n, hs, {}, {}) IN ~Replicates(d) /\ d.del = "none"
-NoTasks(hs) == \A n \in hs : ~Replicates(Decide27(n, hs, {}, {}))
- \* a check "replicates" when it hands the replicator a task with at least one candidate node. (With overlapping
-\* rules the code as found keeps calling the replicator with an EMPTY candidate list: a holder remembered from
-\* an earlier rule does not lower the shortage of a later rule - a phantom shortage that copies nothing.)
-Replicates(d) == \E k \in 1..Len(d.tasks) : Len(d.tasks[k].nodes) > 0
-Quiet(hs) == \A n \in hs : LET d == Decide27(n, hs, {}, {}) IN ~Replicates(d) /\ d.del = "none"
-NoTasks(hs) == \A n \in hs : ~Replicates(Decide27(n, hs, {}, {}))
-T\* a check "replicates" when it hands the replicator a task with at least one candidate node. (With overlapping
-\* rules the code as found keeps calling the replicator with an EMPTY candidate list: a holder remembered from
-\* an earlier rule does not lower the shortage of a later rule - a phantom shortage that copies nothing.)
-Replicates(d) == \E k \in 1..Len(d.tasks) : Len(d.tasks[k].nodes) > 0
-Quiet(hs) == \A n \in hs : LET d == Decide27(n, hs, {}, {}) IN ~Replicates(d) /\ d.del = "none"
-NoTasks(hs) == \A n \in hs : ~Replicates(Decide27(n, hs, {}, {}))
-H\* a check "replicates" when it hands the replicator a task with at least one candidate node. (With overlapping
-\* rules the code as found keeps calling the replicator with an EMPTY candidate list: a holder remembered from
-\* an earlier rule does not lower the shortage of a later rule - a phantom shortage that copies nothing.)
-Replicates(d) == \E k \in 1..Len(d.tasks) : Len(d.tasks[k].nodes) > 0
-Quiet(hs) == \A n \in hs : LET d == Decide27(n, hs, {}, {}) IN ~Replicates(d) /\ d.del = "none"
-NoTasks(hs) == \A n \in hs : ~Replicates(Decide27(n, hs, {}, {}))
-E\* a check "replicates" when it hands the replicator a task with at least one candidate node. (With overlapping
-\* rules the code as found keeps calling the replicator with an EMPTY candidate list: a holder remembered from
-\* an earlier rule does not lower the shortage of a later rule - a phantom shortage that copies nothing.)
-Replicates(d) == \E k \in 1..Len(d.tasks) : Len(d.tasks[k].nodes) > 0
-Quiet(hs) == \A n \in hs : LET d == Decide27(n, hs, {}, {}) IN ~Replicates(d) /\ d.del = "none"
-NoTasks(hs) == \A n \in hs : ~Replicates(Decide27(n, hs, {}, {}))
-N\* a check "replicates" when it hands the replicator a task with at least one candidate node. (With overlapping
-\* rules the code as found keeps calling the replicator with an EMPTY candidate list: a holder remembered from
-\* an earlier rule does not lower the shortage of a later rule - a phantom shortage that copies nothing.)
-Replicates(d) == \E k \in 1..Len(d.tasks) : Len(d.tasks[k].nodes) > 0
-Quiet(hs) == \A n \in hs : LET d == Decide27(n, hs, {}, {}) IN ~Replicates(d) /\ d.del = "none"
-NoTasks(hs) == \A n \in hs : ~Replicates(Decide27(n, hs, {}, {}))
- \* a check "replicates" when it hands the replicator a task with at least one candidate node. (With overlapping
-\* rules the code as found keeps calling the replicator with an EMPTY candidate list: a holder remembered from
-\* an earlier rule does not lower the shortage of a later rule - a phantom shortage that copies nothing.)
-Replicates(d) == \E k \in 1..Len(d.tasks) : Len(d.tasks[k].nodes) > 0
-Quiet(hs) == \A n \in hs : LET d == Decide27(n, hs, {}, {}) IN ~Replicates(d) /\ d.del = "none"
-NoTasks(hs) == \A n \in hs : ~Replicates(Decide27(n, hs, {}, {}))
-R\* a check "replicates" when it hands the replicator a task with at least one candidate node. (With overlapping
-\* rules the code as found keeps calling the replicator with an EMPTY candidate list: a holder remembered from
-\* an earlier rule does not lower the shortage of a later rule - a phantom shortage that copies nothing.)
-Replicates(d) == \E k \in 1..Len(d.tasks) : Len(d.tasks[k].nodes) > 0
-Quiet(hs) == \A n \in hs : LET d == Decide27(n, hs, {}, {}) IN ~Replicates(d) /\ d.del = "none"
-NoTasks(hs) == \A n \in hs : ~Replicates(Decide27(n, hs, {}, {}))
-e\* a check "replicates" when it hands the replicator a task with at least one candidate node. (With overlapping
-\* rules the code as found keeps calling the replicator with an EMPTY candidate list: a holder remembered from
-\* an earlier rule does not lower the shortage of a later rule - a phantom shortage that copies nothing.)
-Replicates(d) == \E k \in 1..Len(d.tasks) : Len(d.tasks[k].nodes) > 0
-Quiet(hs) == \A n \in hs : LET d == Decide27(n, hs, {}, {}) IN ~Replicates(d) /\ d.del = "none"
-NoTasks(hs) == \A n \in hs : ~Replicates(Decide27(n, hs, {}, {}))
-p\* a check "replicates" when it hands the replicator a task with at least one candidate node. (With overlapping
-\* rules the code as found keeps calling the replicator with an EMPTY candidate list: a holder remembered from
-\* an earlier rule does not lower the shortage of a later rule - a phantom shortage that copies nothing.)
-Replicates(d) == \E k \in 1..Len(d.tasks) : Len(d.tasks[k].nodes) > 0
-Quiet(hs) == \A n \in hs : LET d == Decide27(n, hs, {}, {}) IN ~Replicates(d) /\ d.del = "none"
-NoTasks(hs) == \A n \in hs : ~Replicates(Decide27(n, hs, {}, {}))
-l\* a check "replicates" when it hands the replicator a task with at least one candidate node. (With overlapping
-\* rules the code as found keeps calling the replicator with an EMPTY candidate list: a holder remembered from
-\* an earlier rule does not lower the shortage of a later rule - a phantom shortage that copies nothing.)
-Replicates(d) == \E k \in 1..Len(d.tasks) : Len(d.tasks[k].nodes) > 0
-Quiet(hs) == \A n \in hs : LET d == Decide27(n, hs, {}, {}) IN ~Replicates(d) /\ d.del = "none"
-NoTasks(hs) == \A n \in hs : ~Replicates(Decide27(n, hs, {}, {}))
-T\* a check "replicates" when it hands the replicator a task with at least one candidate node. (With overlapping
-\* rules the code as found keeps calling the replicator with an EMPTY candidate list: a holder remembered from
-\* an earlier rule does not lower the shortage of a later rule - a phantom shortage that copies nothing.)
-Replicates(d) == \E k \in 1..Len(d.tasks) : Len(d.tasks[k].nodes) > 0
-Quiet(hs) == \A n \in hs : LET d == Decide27(n, hs, {}, {}) IN ~Replicates(d) /\ d.del = "none"
-NoTasks(hs) == \A n \in hs : ~Replicates(Decide27(n, hs, {}, {}))
-(\* a check "replicates" when it hands the replicator a task with at least one candidate node. (With overlapping
-\* rules the code as found keeps calling the replicator with an EMPTY candidate list: a holder remembered from
-\* an earlier rule does not lower the shortage of a later rule - a phantom shortage that copies nothing.)
-Replicates(d) == \E k \in 1..Len(d.tasks) : Len(d.tasks[k].nodes) > 0
-Quiet(hs) == \A n \in hs : LET d == Decide27(n, hs, {}, {}) IN ~Replicates(d) /\ d.del = "none"
-NoTasks(hs) == \A n \in hs : ~Replicates(Decide27(n, hs, {}, {}))
-n\* a check "replicates" when it hands the replicator a task with at least one candidate node. (With overlapping
-\* rules the code as found keeps calling the replicator with an EMPTY candidate list: a holder remembered from
-\* an earlier rule does not lower the shortage of a later rule - a phantom shortage that copies nothing.)
-Replicates(d) == \E k \in 1..Len(d.tasks) : Len(d.tasks[k].nodes) > 0
-Quiet(hs) == \A n \in hs : LET d == Decide27(n, hs, {}, {}) IN ~Replicates(d) /\ d.del = "none"
-NoTasks(hs) == \A n \in hs : ~Replicates(Decide27(n, hs, {}, {}))
-,\* a check "replicates" when it hands the replicator a task with at least one candidate node. (With overlapping
-\* rules the code as found keeps calling the replicator with an EMPTY candidate list: a holder remembered from
-\* an earlier rule does not lower the shortage of a later rule - a phantom shortage that copies nothing.)
-Replicates(d) == \E k \in 1..Len(d.tasks) : Len(d.tasks[k].nodes) > 0
-Quiet(hs) == \A n \in hs : LET d == Decide27(n, hs, {}, {}) IN ~Replicates(d) /\ d.del = "none"
-NoTasks(hs) == \A n \in hs : ~Replicates(Decide27(n, hs, {}, {}))
- \* a check "replicates" when it hands the replicator a task with at least one candidate node. (With overlapping
-\* rules the code as found keeps calling the replicator with an EMPTY candidate list: a holder remembered from
-\* an earlier rule does not lower the shortage of a later rule - a phantom shortage that copies nothing.)
-Replicates(d) == \E k \in 1..Len(d.tasks) : Len(d.tasks[k].nodes) > 0
-Quiet(hs) == \A n \in hs : LET d == Decide27(n, hs, {}, {}) IN ~Replicates(d) /\ d.del = "none"
-NoTasks(hs) == \A n \in hs : ~Replicates(Decide27(n, hs, {}, {}))
-n\* a check "replicates" when it hands the replicator a task with at least one candidate node. (With overlapping
-\* rules the code as found keeps calling the replicator with an EMPTY candidate list: a holder remembered from
-\* an earlier rule does not lower the shortage of a later rule - a phantom shortage that copies nothing.)
-Replicates(d) == \E k \in 1..Len(d.tasks) : Len(d.tasks[k].nodes) > 0
-Quiet(hs) == \A n \in hs : LET d == Decide27(n, hs, {}, {}) IN ~Replicates(d) /\ d.del = "none"
-NoTasks(hs) == \A n \in hs : ~Replicates(Decide27(n, hs, {}, {}))
-o\* a check "replicates" when it hands the replicator a task with at least one candidate node. (With overlapping
-\* rules the code as found keeps calling the replicator with an EMPTY candidate list: a holder remembered from
-\* an earlier rule does not lower the shortage of a later rule - a phantom shortage that copies nothing.)
-Replicates(d) == \E k \in 1..Len(d.tasks) : Len(d.tasks[k].nodes) > 0
-Quiet(hs) == \A n \in hs : LET d == Decide27(n, hs, {}, {}) IN ~Replicates(d) /\ d.del = "none"
-NoTasks(hs) == \A n \in hs : ~Replicates(Decide27(n, hs, {}, {}))
-d\* a check "replicates" when it hands the replicator a task with at least one candidate node. (With overlapping
-\* rules the code as found keeps calling the replicator with an EMPTY candidate list: a holder remembered from
-\* an earlier rule does not lower the shortage of a later rule - a phantom shortage that copies nothing.)
-Replicates(d) == \E k \in 1..Len(d.tasks) : Len(d.tasks[k].nodes) > 0
-Quiet(hs) == \A n \in hs : LET d == Decide27(n, hs, {}, {}) IN ~Replicates(d) /\ d.del = "none"
-NoTasks(hs) == \A n \in hs : ~Replicates(Decide27(n, hs, {}, {}))
-e\* a check "replicates" when it hands the replicator a task with at least one candidate node. (With overlapping
-\* rules the code as found keeps calling the replicator with an EMPTY candidate list: a holder remembered from
-\* an earlier rule does not lower the shortage of a later rule - a phantom shortage that copies nothing.)
-Replicates(d) == \E k \in 1..Len(d.tasks) : Len(d.tasks[k].nodes) > 0
-Quiet(hs) == \A n \in hs : LET d == Decide27(n, hs, {}, {}) IN ~Replicates(d) /\ d.del = "none"
-NoTasks(hs) == \A n \in hs : ~Replicates(Decide27(n, hs, {}, {}))
-s\* a check "replicates" when it hands the replicator a task with at least one candidate node. (With overlapping
-\* rules the code as found keeps calling the replicator with an EMPTY candidate list: a holder remembered from
-\* an earlier rule does not lower the shortage of a later rule - a phantom shortage that copies nothing.)
-Replicates(d) == \E k \in 1..Len(d.tasks) : Len(d.tasks[k].nodes) > 0
-Quiet(hs) == \A n \in hs : LET d == Decide27(n, hs, {}, {}) IN ~Replicates(d) /\ d.del = "none"
-NoTasks(hs) == \A n \in hs : ~Replicates(Decide27(n, hs, {}, {}))
-,\* a check "replicates" when it hands the replicator a task with at least one candidate node. (With overlapping
-\* rules the code as found keeps calling the replicator with an EMPTY candidate list: a holder remembered from
-\* an earlier rule does not lower the shortage of a later rule - a phantom shortage that copies nothing.)
-Replicates(d) == \E k \in 1..Len(d.tasks) : Len(d.tasks[k].nodes) > 0
-Quiet(hs) == \A n \in hs : LET d == Decide27(n, hs, {}, {}) IN ~Replicates(d) /\ d.del = "none"
-NoTasks(hs) == \A n \in hs : ~Replicates(Decide27(n, hs, {}, {}))
- \* a check "replicates" when it hands the replicator a task with at least one candidate node. (With overlapping
-\* rules the code as found keeps calling the replicator with an EMPTY candidate list: a holder remembered from
-\* an earlier rule does not lower the shortage of a later rule - a phantom shortage that copies nothing.)
-Replicates(d) == \E k \in 1..Len(d.tasks) : Len(d.tasks[k].nodes) > 0
-Quiet(hs) == \A n \in hs : LET d == Decide27(n, hs, {}, {}) IN ~Replicates(d) /\ d.del = "none"
-NoTasks(hs) == \A n \in hs : ~Replicates(Decide27(n, hs, {}, {}))
-j\* a check "replicates" when it hands the replicator a task with at least one candidate node. (With overlapping
-\* rules the code as found keeps calling the replicator with an EMPTY candidate list: a holder remembered from
-\* an earlier rule does not lower the shortage of a later rule - a phantom shortage that copies nothing.)
-Replicates(d) == \E k \in 1..Len(d.tasks) : Len(d.tasks[k].nodes) > 0
-Quiet(hs) == \A n \in hs : LET d == Decide27(n, hs, {}, {}) IN ~Replicates(d) /\ d.del = "none"
-NoTasks(hs) == \A n \in hs : ~Replicates(Decide27(n, hs, {}, {}))
- \* a check "replicates" when it hands the replicator a task with at least one candidate node. (With overlapping
-\* rules the code as found keeps calling the replicator with an EMPTY candidate list: a holder remembered from
-\* an earlier rule does not lower the shortage of a later rule - a phantom shortage that copies nothing.)
-Replicates(d) == \E k \in 1..Len(d.tasks) : Len(d.tasks[k].nodes) > 0
-Quiet(hs) == \A n \in hs : LET d == Decide27(n, hs, {}, {}) IN ~Replicates(d) /\ d.del = "none"
-NoTasks(hs) == \A n \in hs : ~Replicates(Decide27(n, hs, {}, {}))
-+\* a check "replicates" when it hands the replicator a task with at least one candidate node. (With overlapping
-\* rules the code as found keeps calling the replicator with an EMPTY candidate list: a holder remembered from
-\* an earlier rule does not lower the shortage of a later rule - a phantom shortage that copies nothing.)
-Replicates(d) == \E k \in 1..Len(d.tasks) : Len(d.tasks[k].nodes) > 0
-Quiet(hs) == \A n \in hs : LET d == Decide27(n, hs, {}, {}) IN ~Replicates(d) /\ d.del = "none"
-NoTasks(hs) == \A n \in hs : ~Replicates(Decide27(n, hs, {}, {}))
- \* a check "replicates" when it hands the replicator a task with at least one candidate node. (With overlapping
-\* rules the code as found keeps calling the replicator with an EMPTY candidate list: a holder remembered from
-\* an earlier rule does not lower the shortage of a later rule - a phantom shortage that copies nothing.)
-Replicates(d) == \E k \in 1..Len(d.tasks) : Len(d.tasks[k].nodes) > 0
-Quiet(hs) == \A n \in hs : LET d == Decide27(n, hs, {}, {}) IN ~Replicates(d) /\ d.del = "none"
-NoTasks(hs) == \A n \in hs : ~Replicates(Decide27(n, hs, {}, {}))
-1\* a check "replicates" when it hands the replicator a task with at least one candidate node. (With overlapping
-\* rules the code as found keeps calling the replicator with an EMPTY candidate list: a holder remembered from
-\* an earlier rule does not lower the shortage of a later rule - a phantom shortage that copies nothing.)
-Replicates(d) == \E k \in 1..Len(d.tasks) : Len(d.tasks[k].nodes) > 0
-Quiet(hs) == \A n \in hs : LET d == Decide27(n, hs, {}, {}) IN ~Replicates(d) /\ d.del = "none"
-NoTasks(hs) == \A n \in hs : ~Replicates(Decide27(n, hs, {}, {}))
-,\* a check "replicates" when it hands the replicator a task with at least one candidate node. (With overlapping
-\* rules the code as found keeps calling the replicator with an EMPTY candidate list: a holder remembered from
-\* an earlier rule does not lower the shortage of a later rule - a phantom shortage that copies nothing.)
-Replicates(d) == \E k \in 1..Len(d.tasks) : Len(d.tasks[k].nodes) > 0
-Quiet(hs) == \A n \in hs : LET d == Decide27(n, hs, {}, {}) IN ~Replicates(d) /\ d.del = "none"
-NoTasks(hs) == \A n \in hs : ~Replicates(Decide27(n, hs, {}, {}))
- \* a check "replicates" when it hands the replicator a task with at least one candidate node. (With overlapping
-\* rules the code as found keeps calling the replicator with an EMPTY candidate list: a holder remembered from
-\* an earlier rule does not lower the shortage of a later rule - a phantom shortage that copies nothing.)
-Replicates(d) == \E k \in 1..Len(d.tasks) : Len(d.tasks[k].nodes) > 0
-Quiet(hs) == \A n \in hs : LET d == Decide27(n, hs, {}, {}) IN ~Replicates(d) /\ d.del = "none"
-NoTasks(hs) == \A n \in hs : ~Replicates(Decide27(n, hs, {}, {}))
-q\* a check "replicates" when it hands the replicator a task with at least one candidate node. (With overlapping
-\* rules the code as found keeps calling the replicator with an EMPTY candidate list: a holder remembered from
-\* an earlier rule does not lower the shortage of a later rule - a phantom shortage that copies nothing.)
-Replicates(d) == \E k \in 1..Len(d.tasks) : Len(d.tasks[k].nodes) > 0
-Quiet(hs) == \A n \in hs : LET d == Decide27(n, hs, {}, {}) IN ~Replicates(d) /\ d.del = "none"
-NoTasks(hs) == \A n \in hs : ~Replicates(Decide27(n, hs, {}, {}))
- \* a check "replicates" when it hands the replicator a task with at least one candidate node. (With overlapping
-\* rules the code as found keeps calling the replicator with an EMPTY candidate list: a holder remembered from
-\* an earlier rule does not lower the shortage of a later rule - a phantom shortage that copies nothing.)
-Replicates(d) == \E k \in 1..Len(d.tasks) : Len(d.tasks[k].nodes) > 0
-Quiet(hs) == \A n \in hs : LET d == Decide27(n, hs, {}, {}) IN ~Replicates(d) /\ d.del = "none"
-NoTasks(hs) == \A n \in hs : ~Replicates(Decide27(n, hs, {}, {}))
--\* a check "replicates" when it hands the replicator a task with at least one candidate node. (With overlapping
-\* rules the code as found keeps calling the replicator with an EMPTY candidate list: a holder remembered from
-\* an earlier rule does not lower the shortage of a later rule - a phantom shortage that copies nothing.)
-Replicates(d) == \E k \in 1..Len(d.tasks) : Len(d.tasks[k].nodes) > 0
-Quiet(hs) == \A n \in hs : LET d == Decide27(n, hs, {}, {}) IN ~Replicates(d) /\ d.del = "none"
-NoTasks(hs) == \A n \in hs : ~Replicates(Decide27(n, hs, {}, {}))
- \* a check "replicates" when it hands the replicator a task with at least one candidate node. (With overlapping
-\* rules the code as found keeps calling the replicator with an EMPTY candidate list: a holder remembered from
-\* an earlier rule does not lower the shortage of a later rule - a phantom shortage that copies nothing.)
-Replicates(d) == \E k \in 1..Len(d.tasks) : Len(d.tasks[k].nodes) > 0
-Quiet(hs) == \A n \in hs : LET d == Decide27(n, hs, {}, {}) IN ~Replicates(d) /\ d.del = "none"
-NoTasks(hs) == \A n \in hs : ~Replicates(Decide27(n, hs, {}, {}))
-1\* a check "replicates" when it hands the replicator a task with at least one candidate node. (With overlapping
-\* rules the code as found keeps calling the replicator with an EMPTY candidate list: a holder remembered from
-\* an earlier rule does not lower the shortage of a later rule - a phantom shortage that copies nothing.)
-Replicates(d) == \E k \in 1..Len(d.tasks) : Len(d.tasks[k].nodes) > 0
-Quiet(hs) == \A n \in hs : LET d == Decide27(n, hs, {}, {}) IN ~Replicates(d) /\ d.del = "none"
-NoTasks(hs) == \A n \in hs : ~Replicates(Decide27(n, hs, {}, {}))
-,\* a check "replicates" when it hands the replicator a task with at least one candidate node. (With overlapping
-\* rules the code as found keeps calling the replicator with an EMPTY candidate list: a holder remembered from
-\* an earlier rule does not lower the shortage of a later rule - a phantom shortage that copies nothing.)
-Replicates(d) == \E k \in 1..Len(d.tasks) : Len(d.tasks[k].nodes) > 0
-Quiet(hs) == \A n \in hs : LET d == Decide27(n, hs, {}, {}) IN ~Replicates(d) /\ d.del = "none"
-NoTasks(hs) == \A n \in hs : ~Replicates(Decide27(n, hs, {}, {}))
- \* a check "replicates" when it hands the replicator a task with at least one candidate node. (With overlapping
-\* rules the code as found keeps calling the replicator with an EMPTY candidate list: a holder remembered from
-\* an earlier rule does not lower the shortage of a later rule - a phantom shortage that copies nothing.)
-Replicates(d) == \E k \in 1..Len(d.tasks) : Len(d.tasks[k].nodes) > 0
-Quiet(hs) == \A n \in hs : LET d == Decide27(n, hs, {}, {}) IN ~Replicates(d) /\ d.del = "none"
-NoTasks(hs) == \A n \in hs : ~Replicates(Decide27(n, hs, {}, {}))
-b\* a check "replicates" when it hands the replicator a task with at least one candidate node. (With overlapping
-\* rules the code as found keeps calling the replicator with an EMPTY candidate list: a holder remembered from
-\* an earlier rule does not lower the shortage of a later rule - a phantom shortage that copies nothing.)
-Replicates(d) == \E k \in 1..Len(d.tasks) : Len(d.tasks[k].nodes) > 0
-Quiet(hs) == \A n \in hs : LET d == Decide27(n, hs, {}, {}) IN ~Replicates(d) /\ d.del = "none"
-NoTasks(hs) == \A n \in hs : ~Replicates(Decide27(n, hs, {}, {}))
-a\* a check "replicates" when it hands the replicator a task with at least one candidate node. (With overlapping
-\* rules the code as found keeps calling the replicator with an EMPTY candidate list: a holder remembered from
-\* an earlier rule does not lower the shortage of a later rule - a phantom shortage that copies nothing.)
-Replicates(d) == \E k \in 1..Len(d.tasks) : Len(d.tasks[k].nodes) > 0
-Quiet(hs) == \A n \in hs : LET d == Decide27(n, hs, {}, {}) IN ~Replicates(d) /\ d.del = "none"
-NoTasks(hs) == \A n \in hs : ~Replicates(Decide27(n, hs, {}, {}))
-d\* a check "replicates" when it hands the replicator a task with at least one candidate node. (With overlapping
-\* rules the code as found keeps calling the replicator with an EMPTY candidate list: a holder remembered from
-\* an earlier rule does not lower the shortage of a later rule - a phantom shortage that copies nothing.)
-Replicates(d) == \E k \in 1..Len(d.tasks) : Len(d.tasks[k].nodes) > 0
-Quiet(hs) == \A n \in hs : LET d == Decide27(n, hs, {}, {}) IN ~Replicates(d) /\ d.del = "none"
-NoTasks(hs) == \A n \in hs : ~Replicates(Decide27(n, hs, {}, {}))
-,\* a check "replicates" when it hands the replicator a task with at least one candidate node. (With overlapping
-\* rules the code as found keeps calling the replicator with an EMPTY candidate list: a holder remembered from
-\* an earlier rule does not lower the shortage of a later rule - a phantom shortage that copies nothing.)
-Replicates(d) == \E k \in 1..Len(d.tasks) : Len(d.tasks[k].nodes) > 0
-Quiet(hs) == \A n \in hs : LET d == Decide27(n, hs, {}, {}) IN ~Replicates(d) /\ d.del = "none"
-NoTasks(hs) == \A n \in hs : ~Replicates(Decide27(n, hs, {}, {}))
- \* a check "replicates" when it hands the replicator a task with at least one candidate node. (With overlapping
-\* rules the code as found keeps calling the replicator with an EMPTY candidate list: a holder remembered from
-\* an earlier rule does not lower the shortage of a later rule - a phantom shortage that copies nothing.)
-Replicates(d) == \E k \in 1..Len(d.tasks) : Len(d.tasks[k].nodes) > 0
-Quiet(hs) == \A n \in hs : LET d == Decide27(n, hs, {}, {}) IN ~Replicates(d) /\ d.del = "none"
-NoTasks(hs) == \A n \in hs : ~Replicates(Decide27(n, hs, {}, {}))
-A\* a check "replicates" when it hands the replicator a task with at least one candidate node. (With overlapping
-\* rules the code as found keeps calling the replicator with an EMPTY candidate list: a holder remembered from
-\* an earlier rule does not lower the shortage of a later rule - a phantom shortage that copies nothing.)
-Replicates(d) == \E k \in 1..Len(d.tasks) : Len(d.tasks[k].nodes) > 0
-Quiet(hs) == \A n \in hs : LET d == Decide27(n, hs, {}, {}) IN ~Replicates(d) /\ d.del = "none"
-NoTasks(hs) == \A n \in hs : ~Replicates(Decide27(n, hs, {}, {}))
-p\* a check "replicates" when it hands the replicator a task with at least one candidate node. (With overlapping
-\* rules the code as found keeps calling the replicator with an EMPTY candidate list: a holder remembered from
-\* an earlier rule does not lower the shortage of a later rule - a phantom shortage that copies nothing.)
-Replicates(d) == \E k \in 1..Len(d.tasks) : Len(d.tasks[k].nodes) > 0
-Quiet(hs) == \A n \in hs : LET d == Decide27(n, hs, {}, {}) IN ~Replicates(d) /\ d.del = "none"
-NoTasks(hs) == \A n \in hs : ~Replicates(Decide27(n, hs, {}, {}))
-p\* a check "replicates" when it hands the replicator a task with at least one candidate node. (With overlapping
-\* rules the code as found keeps calling the replicator with an EMPTY candidate list: a holder remembered from
-\* an earlier rule does not lower the shortage of a later rule - a phantom shortage that copies nothing.)
-Replicates(d) == \E k \in 1..Len(d.tasks) : Len(d.tasks[k].nodes) > 0
-Quiet(hs) == \A n \in hs : LET d == Decide27(n, hs, {}, {}) IN ~Replicates(d) /\ d.del = "none"
-NoTasks(hs) == \A n \in hs : ~Replicates(Decide27(n, hs, {}, {}))
-e\* a check "replicates" when it hands the replicator a task with at least one candidate node. (With overlapping
-\* rules the code as found keeps calling the replicator with an EMPTY candidate list: a holder remembered from
-\* an earlier rule does not lower the shortage of a later rule - a phantom shortage that copies nothing.)
-Replicates(d) == \E k \in 1..Len(d.tasks) : Len(d.tasks[k].nodes) > 0
-Quiet(hs) == \A n \in hs : LET d == Decide27(n, hs, {}, {}) IN ~Replicates(d) /\ d.del = "none"
-NoTasks(hs) == \A n \in hs : ~Replicates(Decide27(n, hs, {}, {}))
-n\* a check "replicates" when it hands the replicator a task with at least one candidate node. (With overlapping
-\* rules the code as found keeps calling the replicator with an EMPTY candidate list: a holder remembered from
-\* an earlier rule does not lower the shortage of a later rule - a phantom shortage that copies nothing.)
-Replicates(d) == \E k \in 1..Len(d.tasks) : Len(d.tasks[k].nodes) > 0
-Quiet(hs) == \A n \in hs : LET d == Decide27(n, hs, {}, {}) IN ~Replicates(d) /\ d.del = "none"
-NoTasks(hs) == \A n \in hs : ~Replicates(Decide27(n, hs, {}, {}))
-d\* a check "replicates" when it hands the replicator a task with at least one candidate node. (With overlapping
-\* rules the code as found keeps calling the replicator with an EMPTY candidate list: a holder remembered from
-\* an earlier rule does not lower the shortage of a later rule - a phantom shortage that copies nothing.)
-Replicates(d) == \E k \in 1..Len(d.tasks) : Len(d.tasks[k].nodes) > 0
-Quiet(hs) == \A n \in hs : LET d == Decide27(n, hs, {}, {}) IN ~Replicates(d) /\ d.del = "none"
-NoTasks(hs) == \A n \in hs : ~Replicates(Decide27(n, hs, {}, {}))
-(\* a check "replicates" when it hands the replicator a task with at least one candidate node. (With overlapping
-\* rules the code as found keeps calling the replicator with an EMPTY candidate list: a holder remembered from
-\* an earlier rule does not lower the shortage of a later rule - a phantom shortage that copies nothing.)
-Replicates(d) == \E k \in 1..Len(d.tasks) : Len(d.tasks[k].nodes) > 0
-Quiet(hs) == \A n \in hs : LET d == Decide27(n, hs, {}, {}) IN ~Replicates(d) /\ d.del = "none"
-NoTasks(hs) == \A n \in hs : ~Replicates(Decide27(n, hs, {}, {}))
-a\* a check "replicates" when it hands the replicator a task with at least one candidate node. (With overlapping
-\* rules the code as found keeps calling the replicator with an EMPTY candidate list: a holder remembered from
-\* an earlier rule does not lower the shortage of a later rule - a phantom shortage that copies nothing.)
-Replicates(d) == \E k \in 1..Len(d.tasks) : Len(d.tasks[k].nodes) > 0
-Quiet(hs) == \A n \in hs : LET d == Decide27(n, hs, {}, {}) IN ~Replicates(d) /\ d.del = "none"
-NoTasks(hs) == \A n \in hs : ~Replicates(Decide27(n, hs, {}, {}))
-c\* a check "replicates" when it hands the replicator a task with at least one candidate node. (With overlapping
-\* rules the code as found keeps calling the replicator with an EMPTY candidate list: a holder remembered from
-\* an earlier rule does not lower the shortage of a later rule - a phantom shortage that copies nothing.)
-Replicates(d) == \E k \in 1..Len(d.tasks) : Len(d.tasks[k].nodes) > 0
-Quiet(hs) == \A n \in hs : LET d == Decide27(n, hs, {}, {}) IN ~Replicates(d) /\ d.del = "none"
-NoTasks(hs) == \A n \in hs : ~Replicates(Decide27(n, hs, {}, {}))
-c\* a check "replicates" when it hands the replicator a task with at least one candidate node. (With overlapping
-\* rules the code as found keeps calling the replicator with an EMPTY candidate list: a holder remembered from
-\* an earlier rule does not lower the shortage of a later rule - a phantom shortage that copies nothing.)
-Replicates(d) == \E k \in 1..Len(d.tasks) : Len(d.tasks[k].nodes) > 0
-Quiet(hs) == \A n \in hs : LET d == Decide27(n, hs, {}, {}) IN ~Replicates(d) /\ d.del = "none"
-NoTasks(hs) == \A n \in hs : ~Replicates(Decide27(n, hs, {}, {}))
-,\* a check "replicates" when it hands the replicator a task with at least one candidate node. (With overlapping
-\* rules the code as found keeps calling the replicator with an EMPTY candidate list: a holder remembered from
-\* an earlier rule does not lower the shortage of a later rule - a phantom shortage that copies nothing.)
-Replicates(d) == \E k \in 1..Len(d.tasks) : Len(d.tasks[k].nodes) > 0
-Quiet(hs) == \A n \in hs : LET d == Decide27(n, hs, {}, {}) IN ~Replicates(d) /\ d.del = "none"
-NoTasks(hs) == \A n \in hs : ~Replicates(Decide27(n, hs, {}, {}))
- \* a check "replicates" when it hands the replicator a task with at least one candidate node. (With overlapping
-\* rules the code as found keeps calling the replicator with an EMPTY candidate list: a holder remembered from
-\* an earlier rule does not lower the shortage of a later rule - a phantom shortage that copies nothing.)
-Replicates(d) == \E k \in 1..Len(d.tasks) : Len(d.tasks[k].nodes) > 0
-Quiet(hs) == \A n \in hs : LET d == Decide27(n, hs, {}, {}) IN ~Replicates(d) /\ d.del = "none"
-NoTasks(hs) == \A n \in hs : ~Replicates(Decide27(n, hs, {}, {}))
-n\* a check "replicates" when it hands the replicator a task with at least one candidate node. (With overlapping
-\* rules the code as found keeps calling the replicator with an EMPTY candidate list: a holder remembered from
-\* an earlier rule does not lower the shortage of a later rule - a phantom shortage that copies nothing.)
-Replicates(d) == \E k \in 1..Len(d.tasks) : Len(d.tasks[k].nodes) > 0
-Quiet(hs) == \A n \in hs : LET d == Decide27(n, hs, {}, {}) IN ~Replicates(d) /\ d.del = "none"
-NoTasks(hs) == \A n \in hs : ~Replicates(Decide27(n, hs, {}, {}))
-o\* a check "replicates" when it hands the replicator a task with at least one candidate node. (With overlapping
-\* rules the code as found keeps calling the replicator with an EMPTY candidate list: a holder remembered from
-\* an earlier rule does not lower the shortage of a later rule - a phantom shortage that copies nothing.)
-Replicates(d) == \E k \in 1..Len(d.tasks) : Len(d.tasks[k].nodes) > 0
-Quiet(hs) == \A n \in hs : LET d == Decide27(n, hs, {}, {}) IN ~Replicates(d) /\ d.del = "none"
-NoTasks(hs) == \A n \in hs : ~Replicates(Decide27(n, hs, {}, {}))
-d\* a check "replicates" when it hands the replicator a task with at least one candidate node. (With overlapping
-\* rules the code as found keeps calling the replicator with an EMPTY candidate list: a holder remembered from
-\* an earlier rule does not lower the shortage of a later rule - a phantom shortage that copies nothing.)
-Replicates(d) == \E k \in 1..Len(d.tasks) : Len(d.tasks[k].nodes) > 0
-Quiet(hs) == \A n \in hs : LET d == Decide27(n, hs, {}, {}) IN ~Replicates(d) /\ d.del = "none"
-NoTasks(hs) == \A n \in hs : ~Replicates(Decide27(n, hs, {}, {}))
-e\* a check "replicates" when it hands the replicator a task with at least one candidate node. (With overlapping
-\* rules the code as found keeps calling the replicator with an EMPTY candidate list: a holder remembered from
-\* an earlier rule does not lower the shortage of a later rule - a phantom shortage that copies nothing.)
-Replicates(d) == \E k \in 1..Len(d.tasks) : Len(d.tasks[k].nodes) > 0
-Quiet(hs) == \A n \in hs : LET d == Decide27(n, hs, {}, {}) IN ~Replicates(d) /\ d.del = "none"
-NoTasks(hs) == \A n \in hs : ~Replicates(Decide27(n, hs, {}, {}))
-s\* a check "replicates" when it hands the replicator a task with at least one candidate node. (With overlapping
-\* rules the code as found keeps calling the replicator with an EMPTY candidate list: a holder remembered from
-\* an earlier rule does not lower the shortage of a later rule - a phantom shortage that copies nothing.)
-Replicates(d) == \E k \in 1..Len(d.tasks) : Len(d.tasks[k].nodes) > 0
-Quiet(hs) == \A n \in hs : LET d == Decide27(n, hs, {}, {}) IN ~Replicates(d) /\ d.del = "none"
-NoTasks(hs) == \A n \in hs : ~Replicates(Decide27(n, hs, {}, {}))
-[\* a check "replicates" when it hands the replicator a task with at least one candidate node. (With overlapping
-\* rules the code as found keeps calling the replicator with an EMPTY candidate list: a holder remembered from
-\* an earlier rule does not lower the shortage of a later rule - a phantom shortage that copies nothing.)
-Replicates(d) == \E k \in 1..Len(d.tasks) : Len(d.tasks[k].nodes) > 0
-Quiet(hs) == \A n \in hs : LET d == Decide27(n, hs, {}, {}) IN ~Replicates(d) /\ d.del = "none"
-NoTasks(hs) == \A n \in hs : ~Replicates(Decide27(n, hs, {}, {}))
-j\* a check "replicates" when it hands the replicator a task with at least one candidate node. (With overlapping
-\* rules the code as found keeps calling the replicator with an EMPTY candidate list: a holder remembered from
-\* an earlier rule does not lower the shortage of a later rule - a phantom shortage that copies nothing.)
-Replicates(d) == \E k \in 1..Len(d.tasks) : Len(d.tasks[k].nodes) > 0
-Quiet(hs) == \A n \in hs : LET d == Decide27(n, hs, {}, {}) IN ~Replicates(d) /\ d.del = "none"
-NoTasks(hs) == \A n \in hs : ~Replicates(Decide27(n, hs, {}, {}))
-]\* a check "replicates" when it hands the replicator a task with at least one candidate node. (With overlapping
-\* rules the code as found keeps calling the replicator with an EMPTY candidate list: a holder remembered from
-\* an earlier rule does not lower the shortage of a later rule - a phantom shortage that copies nothing.)
-Replicates(d) == \E k \in 1..Len(d.tasks) : Len(d.tasks[k].nodes) > 0
-Quiet(hs) == \A n \in hs : LET d == Decide27(n, hs, {}, {}) IN ~Replicates(d) /\ d.del = "none"
-NoTasks(hs) == \A n \in hs : ~Replicates(Decide27(n, hs, {}, {}))
-)\* a check "replicates" when it hands the replicator a task with at least one candidate node. (With overlapping
-\* rules the code as found keeps calling the replicator with an EMPTY candidate list: a holder remembered from
-\* an earlier rule does not lower the shortage of a later rule - a phantom shortage that copies nothing.)
-Replicates(d) == \E k \in 1..Len(d.tasks) : Len(d.tasks[k].nodes) > 0
-Quiet(hs) == \A n \in hs : LET d == Decide27(n, hs, {}, {}) IN ~Replicates(d) /\ d.del = "none"
-NoTasks(hs) == \A n \in hs : ~Replicates(Decide27(n, hs, {}, {}))
-)\* a check "replicates" when it hands the replicator a task with at least one candidate node. (With overlapping
-\* rules the code as found keeps calling the replicator with an EMPTY candidate list: a holder remembered from
-\* an earlier rule does not lower the shortage of a later rule - a phantom shortage that copies nothing.)
-Replicates(d) == \E k \in 1..Len(d.tasks) : Len(d.tasks[k].nodes) > 0
-Quiet(hs) == \A n \in hs : LET d == Decide27(n, hs, {}, {}) IN ~Replicates(d) /\ d.del = "none"
-NoTasks(hs) == \A n \in hs : ~Replicates(Decide27(n, hs, {}, {}))
-
-\* a check "replicates" when it hands the replicator a task with at least one candidate node. (With overlapping
-\* rules the code as found keeps calling the replicator with an EMPTY candidate list: a holder remembered from
-\* an earlier rule does not lower the shortage of a later rule - a phantom shortage that copies nothing.)
-Replicates(d) == \E k \in 1..Len(d.tasks) : Len(d.tasks[k].nodes) > 0
-Quiet(hs) == \A n \in hs : LET d == Decide27(n, hs, {}, {}) IN ~Replicates(d) /\ d.del = "none"
-NoTasks(hs) == \A n \in hs : ~Replicates(Decide27(n, hs, {}, {}))
- \* a check "replicates" when it hands the replicator a task with at least one candidate node. (With overlapping
-\* rules the code as found keeps calling the replicator with an EMPTY candidate list: a holder remembered from
-\* an earlier rule does not lower the shortage of a later rule - a phantom shortage that copies nothing.)
-Replicates(d) == \E k \in 1..Len(d.tasks) : Len(d.tasks[k].nodes) > 0
-Quiet(hs) == \A n \in hs : LET d == Decide27(n, hs, {}, {}) IN ~Replicates(d) /\ d.del = "none"
-NoTasks(hs) == \A n \in hs : ~Replicates(Decide27(n, hs, {}, {}))
- \* a check "replicates" when it hands the replicator a task with at least one candidate node. (With overlapping
-\* rules the code as found keeps calling the replicator with an EMPTY candidate list: a holder remembered from
-\* an earlier rule does not lower the shortage of a later rule - a phantom shortage that copies nothing.)
-Replicates(d) == \E k \in 1..Len(d.tasks) : Len(d.tasks[k].nodes) > 0
-Quiet(hs) == \A n \in hs : LET d == Decide27(n, hs, {}, {}) IN ~Replicates(d) /\ d.del = "none"
-NoTasks(hs) == \A n \in hs : ~Replicates(Decide27(n, hs, {}, {}))
-E\* a check "replicates" when it hands the replicator a task with at least one candidate node. (With overlapping
-\* rules the code as found keeps calling the replicator with an EMPTY candidate list: a holder remembered from
-\* an earlier rule does not lower the shortage of a later rule - a phantom shortage that copies nothing.)
-Replicates(d) == \E k \in 1..Len(d.tasks) : Len(d.tasks[k].nodes) > 0
-Quiet(hs) == \A n \in hs : LET d == Decide27(n, hs, {}, {}) IN ~Replicates(d) /\ d.del = "none"
-NoTasks(hs) == \A n \in hs : ~Replicates(Decide27(n, hs, {}, {}))
-L\* a check "replicates" when it hands the replicator a task with at least one candidate node. (With overlapping
-\* rules the code as found keeps calling the replicator with an EMPTY candidate list: a holder remembered from
-\* an earlier rule does not lower the shortage of a later rule - a phantom shortage that copies nothing.)
-Replicates(d) == \E k \in 1..Len(d.tasks) : Len(d.tasks[k].nodes) > 0
-Quiet(hs) == \A n \in hs : LET d == Decide27(n, hs, {}, {}) IN ~Replicates(d) /\ d.del = "none"
-NoTasks(hs) == \A n \in hs : ~Replicates(Decide27(n, hs, {}, {}))
-S\* a check "replicates" when it hands the replicator a task with at least one candidate node. (With overlapping
-\* rules the code as found keeps calling the replicator with an EMPTY candidate list: a holder remembered from
-\* an earlier rule does not lower the shortage of a later rule - a phantom shortage that copies nothing.)
-Replicates(d) == \E k \in 1..Len(d.tasks) : Len(d.tasks[k].nodes) > 0
-Quiet(hs) == \A n \in hs : LET d == Decide27(n, hs, {}, {}) IN ~Replicates(d) /\ d.del = "none"
-NoTasks(hs) == \A n \in hs : ~Replicates(Decide27(n, hs, {}, {}))
-E\* a check "replicates" when it hands the replicator a task with at least one candidate node. (With overlapping
-\* rules the code as found keeps calling the replicator with an EMPTY candidate list: a holder remembered from
-\* an earlier rule does not lower the shortage of a later rule - a phantom shortage that copies nothing.)
-Replicates(d) == \E k \in 1..Len(d.tasks) : Len(d.tasks[k].nodes) > 0
-Quiet(hs) == \A n \in hs : LET d == Decide27(n, hs, {}, {}) IN ~Replicates(d) /\ d.del = "none"
-NoTasks(hs) == \A n \in hs : ~Replicates(Decide27(n, hs, {}, {}))
- \* a check "replicates" when it hands the replicator a task with at least one candidate node. (With overlapping
-\* rules the code as found keeps calling the replicator with an EMPTY candidate list: a holder remembered from
-\* an earlier rule does not lower the shortage of a later rule - a phantom shortage that copies nothing.)
-Replicates(d) == \E k \in 1..Len(d.tasks) : Len(d.tasks[k].nodes) > 0
-Quiet(hs) == \A n \in hs : LET d == Decide27(n, hs, {}, {}) IN ~Replicates(d) /\ d.del = "none"
-NoTasks(hs) == \A n \in hs : ~Replicates(Decide27(n, hs, {}, {}))
-R\* a check "replicates" when it hands the replicator a task with at least one candidate node. (With overlapping
-\* rules the code as found keeps calling the replicator with an EMPTY candidate list: a holder remembered from
-\* an earlier rule does not lower the shortage of a later rule - a phantom shortage that copies nothing.)
-Replicates(d) == \E k \in 1..Len(d.tasks) : Len(d.tasks[k].nodes) > 0
-Quiet(hs) == \A n \in hs : LET d == Decide27(n, hs, {}, {}) IN ~Replicates(d) /\ d.del = "none"
-NoTasks(hs) == \A n \in hs : ~Replicates(Decide27(n, hs, {}, {}))
-e\* a check "replicates" when it hands the replicator a task with at least one candidate node. (With overlapping
-\* rules the code as found keeps calling the replicator with an EMPTY candidate list: a holder remembered from
-\* an earlier rule does not lower the shortage of a later rule - a phantom shortage that copies nothing.)
-Replicates(d) == \E k \in 1..Len(d.tasks) : Len(d.tasks[k].nodes) > 0
-Quiet(hs) == \A n \in hs : LET d == Decide27(n, hs, {}, {}) IN ~Replicates(d) /\ d.del = "none"
-NoTasks(hs) == \A n \in hs : ~Replicates(Decide27(n, hs, {}, {}))
-p\* a check "replicates" when it hands the replicator a task with at least one candidate node. (With overlapping
-\* rules the code as found keeps calling the replicator with an EMPTY candidate list: a holder remembered from
-\* an earlier rule does not lower the shortage of a later rule - a phantom shortage that copies nothing.)
-Replicates(d) == \E k \in 1..Len(d.tasks) : Len(d.tasks[k].nodes) > 0
-Quiet(hs) == \A n \in hs : LET d == Decide27(n, hs, {}, {}) IN ~Replicates(d) /\ d.del = "none"
-NoTasks(hs) == \A n \in hs : ~Replicates(Decide27(n, hs, {}, {}))
-l\* a check "replicates" when it hands the replicator a task with at least one candidate node. (With overlapping
-\* rules the code as found keeps calling the replicator with an EMPTY candidate list: a holder remembered from
-\* an earlier rule does not lower the shortage of a later rule - a phantom shortage that copies nothing.)
-Replicates(d) == \E k \in 1..Len(d.tasks) : Len(d.tasks[k].nodes) > 0
-Quiet(hs) == \A n \in hs : LET d == Decide27(n, hs, {}, {}) IN ~Replicates(d) /\ d.del = "none"
-NoTasks(hs) == \A n \in hs : ~Replicates(Decide27(n, hs, {}, {}))
-T\* a check "replicates" when it hands the replicator a task with at least one candidate node. (With overlapping
-\* rules the code as found keeps calling the replicator with an EMPTY candidate list: a holder remembered from
-\* an earlier rule does not lower the shortage of a later rule - a phantom shortage that copies nothing.)
-Replicates(d) == \E k \in 1..Len(d.tasks) : Len(d.tasks[k].nodes) > 0
-Quiet(hs) == \A n \in hs : LET d == Decide27(n, hs, {}, {}) IN ~Replicates(d) /\ d.del = "none"
-NoTasks(hs) == \A n \in hs : ~Replicates(Decide27(n, hs, {}, {}))
-(\* a check "replicates" when it hands the replicator a task with at least one candidate node. (With overlapping
-\* rules the code as found keeps calling the replicator with an EMPTY candidate list: a holder remembered from
-\* an earlier rule does not lower the shortage of a later rule - a phantom shortage that copies nothing.)
-Replicates(d) == \E k \in 1..Len(d.tasks) : Len(d.tasks[k].nodes) > 0
-Quiet(hs) == \A n \in hs : LET d == Decide27(n, hs, {}, {}) IN ~Replicates(d) /\ d.del = "none"
-NoTasks(hs) == \A n \in hs : ~Replicates(Decide27(n, hs, {}, {}))
-n\* a check "replicates" when it hands the replicator a task with at least one candidate node. (With overlapping
-\* rules the code as found keeps calling the replicator with an EMPTY candidate list: a holder remembered from
-\* an earlier rule does not lower the shortage of a later rule - a phantom shortage that copies nothing.)
-Replicates(d) == \E k \in 1..Len(d.tasks) : Len(d.tasks[k].nodes) > 0
-Quiet(hs) == \A n \in hs : LET d == Decide27(n, hs, {}, {}) IN ~Replicates(d) /\ d.del = "none"
-NoTasks(hs) == \A n \in hs : ~Replicates(Decide27(n, hs, {}, {}))
-,\* a check "replicates" when it hands the replicator a task with at least one candidate node. (With overlapping
-\* rules the code as found keeps calling the replicator with an EMPTY candidate list: a holder remembered from
-\* an earlier rule does not lower the shortage of a later rule - a phantom shortage that copies nothing.)
-Replicates(d) == \E k \in 1..Len(d.tasks) : Len(d.tasks[k].nodes) > 0
-Quiet(hs) == \A n \in hs : LET d == Decide27(n, hs, {}, {}) IN ~Replicates(d) /\ d.del = "none"
-NoTasks(hs) == \A n \in hs : ~Replicates(Decide27(n, hs, {}, {}))
- \* a check "replicates" when it hands the replicator a task with at least one candidate node. (With overlapping
-\* rules the code as found keeps calling the replicator with an EMPTY candidate list: a holder remembered from
-\* an earlier rule does not lower the shortage of a later rule - a phantom shortage that copies nothing.)
-Replicates(d) == \E k \in 1..Len(d.tasks) : Len(d.tasks[k].nodes) > 0
-Quiet(hs) == \A n \in hs : LET d == Decide27(n, hs, {}, {}) IN ~Replicates(d) /\ d.del = "none"
-NoTasks(hs) == \A n \in hs : ~Replicates(Decide27(n, hs, {}, {}))
-n\* a check "replicates" when it hands the replicator a task with at least one candidate node. (With overlapping
-\* rules the code as found keeps calling the replicator with an EMPTY candidate list: a holder remembered from
-\* an earlier rule does not lower the shortage of a later rule - a phantom shortage that copies nothing.)
-Replicates(d) == \E k \in 1..Len(d.tasks) : Len(d.tasks[k].nodes) > 0
-Quiet(hs) == \A n \in hs : LET d == Decide27(n, hs, {}, {}) IN ~Replicates(d) /\ d.del = "none"
-NoTasks(hs) == \A n \in hs : ~Replicates(Decide27(n, hs, {}, {}))
-o\* a check "replicates" when it hands the replicator a task with at least one candidate node. (With overlapping
-\* rules the code as found keeps calling the replicator with an EMPTY candidate list: a holder remembered from
-\* an earlier rule does not lower the shortage of a later rule - a phantom shortage that copies nothing.)
-Replicates(d) == \E k \in 1..Len(d.tasks) : Len(d.tasks[k].nodes) > 0
-Quiet(hs) == \A n \in hs : LET d == Decide27(n, hs, {}, {}) IN ~Replicates(d) /\ d.del = "none"
-NoTasks(hs) == \A n \in hs : ~Replicates(Decide27(n, hs, {}, {}))
-d\* a check "replicates" when it hands the replicator a task with at least one candidate node. (With overlapping
-\* rules the code as found keeps calling the replicator with an EMPTY candidate list: a holder remembered from
-\* an earlier rule does not lower the shortage of a later rule - a phantom shortage that copies nothing.)
-Replicates(d) == \E k \in 1..Len(d.tasks) : Len(d.tasks[k].nodes) > 0
-Quiet(hs) == \A n \in hs : LET d == Decide27(n, hs, {}, {}) IN ~Replicates(d) /\ d.del = "none"
-NoTasks(hs) == \A n \in hs : ~Replicates(Decide27(n, hs, {}, {}))
-e\* a check "replicates" when it hands the replicator a task with at least one candidate node. (With overlapping
-\* rules the code as found keeps calling the replicator with an EMPTY candidate list: a holder remembered from
-\* an earlier rule does not lower the shortage of a later rule - a phantom shortage that copies nothing.)
-Replicates(d) == \E k \in 1..Len(d.tasks) : Len(d.tasks[k].nodes) > 0
-Quiet(hs) == \A n \in hs : LET d == Decide27(n, hs, {}, {}) IN ~Replicates(d) /\ d.del = "none"
-NoTasks(hs) == \A n \in hs : ~Replicates(Decide27(n, hs, {}, {}))
-s\* a check "replicates" when it hands the replicator a task with at least one candidate node. (With overlapping
-\* rules the code as found keeps calling the replicator with an EMPTY candidate list: a holder remembered from
-\* an earlier rule does not lower the shortage of a later rule - a phantom shortage that copies nothing.)
-Replicates(d) == \E k \in 1..Len(d.tasks) : Len(d.tasks[k].nodes) > 0
-Quiet(hs) == \A n \in hs : LET d == Decide27(n, hs, {}, {}) IN ~Replicates(d) /\ d.del = "none"
-NoTasks(hs) == \A n \in hs : ~Replicates(Decide27(n, hs, {}, {}))
-,\* a check "replicates" when it hands the replicator a task with at least one candidate node. (With overlapping
-\* rules the code as found keeps calling the replicator with an EMPTY candidate list: a holder remembered from
-\* an earlier rule does not lower the shortage of a later rule - a phantom shortage that copies nothing.)
-Replicates(d) == \E k \in 1..Len(d.tasks) : Len(d.tasks[k].nodes) > 0
-Quiet(hs) == \A n \in hs : LET d == Decide27(n, hs, {}, {}) IN ~Replicates(d) /\ d.del = "none"
-NoTasks(hs) == \A n \in hs : ~Replicates(Decide27(n, hs, {}, {}))
- \* a check "replicates" when it hands the replicator a task with at least one candidate node. (With overlapping
-\* rules the code as found keeps calling the replicator with an EMPTY candidate list: a holder remembered from
-\* an earlier rule does not lower the shortage of a later rule - a phantom shortage that copies nothing.)
-Replicates(d) == \E k \in 1..Len(d.tasks) : Len(d.tasks[k].nodes) > 0
-Quiet(hs) == \A n \in hs : LET d == Decide27(n, hs, {}, {}) IN ~Replicates(d) /\ d.del = "none"
-NoTasks(hs) == \A n \in hs : ~Replicates(Decide27(n, hs, {}, {}))
-j\* a check "replicates" when it hands the replicator a task with at least one candidate node. (With overlapping
-\* rules the code as found keeps calling the replicator with an EMPTY candidate list: a holder remembered from
-\* an earlier rule does not lower the shortage of a later rule - a phantom shortage that copies nothing.)
-Replicates(d) == \E k \in 1..Len(d.tasks) : Len(d.tasks[k].nodes) > 0
-Quiet(hs) == \A n \in hs : LET d == Decide27(n, hs, {}, {}) IN ~Replicates(d) /\ d.del = "none"
-NoTasks(hs) == \A n \in hs : ~Replicates(Decide27(n, hs, {}, {}))
- \* a check "replicates" when it hands the replicator a task with at least one candidate node. (With overlapping
-\* rules the code as found keeps calling the replicator with an EMPTY candidate list: a holder remembered from
-\* an earlier rule does not lower the shortage of a later rule - a phantom shortage that copies nothing.)
-Replicates(d) == \E k \in 1..Len(d.tasks) : Len(d.tasks[k].nodes) > 0
-Quiet(hs) == \A n \in hs : LET d == Decide27(n, hs, {}, {}) IN ~Replicates(d) /\ d.del = "none"
-NoTasks(hs) == \A n \in hs : ~Replicates(Decide27(n, hs, {}, {}))
-+\* a check "replicates" when it hands the replicator a task with at least one candidate node. (With overlapping
-\* rules the code as found keeps calling the replicator with an EMPTY candidate list: a holder remembered from
-\* an earlier rule does not lower the shortage of a later rule - a phantom shortage that copies nothing.)
-Replicates(d) == \E k \in 1..Len(d.tasks) : Len(d.tasks[k].nodes) > 0
-Quiet(hs) == \A n \in hs : LET d == Decide27(n, hs, {}, {}) IN ~Replicates(d) /\ d.del = "none"
-NoTasks(hs) == \A n \in hs : ~Replicates(Decide27(n, hs, {}, {}))
- \* a check "replicates" when it hands the replicator a task with at least one candidate node. (With overlapping
-\* rules the code as found keeps calling the replicator with an EMPTY candidate list: a holder remembered from
-\* an earlier rule does not lower the shortage of a later rule - a phantom shortage that copies nothing.)
-Replicates(d) == \E k \in 1..Len(d.tasks) : Len(d.tasks[k].nodes) > 0
-Quiet(hs) == \A n \in hs : LET d == Decide27(n, hs, {}, {}) IN ~Replicates(d) /\ d.del = "none"
-NoTasks(hs) == \A n \in hs : ~Replicates(Decide27(n, hs, {}, {}))
-1\* a check "replicates" when it hands the replicator a task with at least one candidate node. (With overlapping
-\* rules the code as found keeps calling the replicator with an EMPTY candidate list: a holder remembered from
-\* an earlier rule does not lower the shortage of a later rule - a phantom shortage that copies nothing.)
-Replicates(d) == \E k \in 1..Len(d.tasks) : Len(d.tasks[k].nodes) > 0
-Quiet(hs) == \A n \in hs : LET d == Decide27(n, hs, {}, {}) IN ~Replicates(d) /\ d.del = "none"
-NoTasks(hs) == \A n \in hs : ~Replicates(Decide27(n, hs, {}, {}))
-,\* a check "replicates" when it hands the replicator a task with at least one candidate node. (With overlapping
-\* rules the code as found keeps calling the replicator with an EMPTY candidate list: a holder remembered from
-\* an earlier rule does not lower the shortage of a later rule - a phantom shortage that copies nothing.)
-Replicates(d) == \E k \in 1..Len(d.tasks) : Len(d.tasks[k].nodes) > 0
-Quiet(hs) == \A n \in hs : LET d == Decide27(n, hs, {}, {}) IN ~Replicates(d) /\ d.del = "none"
-NoTasks(hs) == \A n \in hs : ~Replicates(Decide27(n, hs, {}, {}))
- \* a check "replicates" when it hands the replicator a task with at least one candidate node. (With overlapping
-\* rules the code as found keeps calling the replicator with an EMPTY candidate list: a holder remembered from
-\* an earlier rule does not lower the shortage of a later rule - a phantom shortage that copies nothing.)
-Replicates(d) == \E k \in 1..Len(d.tasks) : Len(d.tasks[k].nodes) > 0
-Quiet(hs) == \A n \in hs : LET d == Decide27(n, hs, {}, {}) IN ~Replicates(d) /\ d.del = "none"
-NoTasks(hs) == \A n \in hs : ~Replicates(Decide27(n, hs, {}, {}))
-q\* a check "replicates" when it hands the replicator a task with at least one candidate node. (With overlapping
-\* rules the code as found keeps calling the replicator with an EMPTY candidate list: a holder remembered from
-\* an earlier rule does not lower the shortage of a later rule - a phantom shortage that copies nothing.)
-Replicates(d) == \E k \in 1..Len(d.tasks) : Len(d.tasks[k].nodes) > 0
-Quiet(hs) == \A n \in hs : LET d == Decide27(n, hs, {}, {}) IN ~Replicates(d) /\ d.del = "none"
-NoTasks(hs) == \A n \in hs : ~Replicates(Decide27(n, hs, {}, {}))
-,\* a check "replicates" when it hands the replicator a task with at least one candidate node. (With overlapping
-\* rules the code as found keeps calling the replicator with an EMPTY candidate list: a holder remembered from
-\* an earlier rule does not lower the shortage of a later rule - a phantom shortage that copies nothing.)
-Replicates(d) == \E k \in 1..Len(d.tasks) : Len(d.tasks[k].nodes) > 0
-Quiet(hs) == \A n \in hs : LET d == Decide27(n, hs, {}, {}) IN ~Replicates(d) /\ d.del = "none"
-NoTasks(hs) == \A n \in hs : ~Replicates(Decide27(n, hs, {}, {}))
- \* a check "replicates" when it hands the replicator a task with at least one candidate node. (With overlapping
-\* rules the code as found keeps calling the replicator with an EMPTY candidate list: a holder remembered from
-\* an earlier rule does not lower the shortage of a later rule - a phantom shortage that copies nothing.)
-Replicates(d) == \E k \in 1..Len(d.tasks) : Len(d.tasks[k].nodes) > 0
-Quiet(hs) == \A n \in hs : LET d == Decide27(n, hs, {}, {}) IN ~Replicates(d) /\ d.del = "none"
-NoTasks(hs) == \A n \in hs : ~Replicates(Decide27(n, hs, {}, {}))
-b\* a check "replicates" when it hands the replicator a task with at least one candidate node. (With overlapping
-\* rules the code as found keeps calling the replicator with an EMPTY candidate list: a holder remembered from
-\* an earlier rule does not lower the shortage of a later rule - a phantom shortage that copies nothing.)
-Replicates(d) == \E k \in 1..Len(d.tasks) : Len(d.tasks[k].nodes) > 0
-Quiet(hs) == \A n \in hs : LET d == Decide27(n, hs, {}, {}) IN ~Replicates(d) /\ d.del = "none"
-NoTasks(hs) == \A n \in hs : ~Replicates(Decide27(n, hs, {}, {}))
-a\* a check "replicates" when it hands the replicator a task with at least one candidate node. (With overlapping
-\* rules the code as found keeps calling the replicator with an EMPTY candidate list: a holder remembered from
-\* an earlier rule does not lower the shortage of a later rule - a phantom shortage that copies nothing.)
-Replicates(d) == \E k \in 1..Len(d.tasks) : Len(d.tasks[k].nodes) > 0
-Quiet(hs) == \A n \in hs : LET d == Decide27(n, hs, {}, {}) IN ~Replicates(d) /\ d.del = "none"
-NoTasks(hs) == \A n \in hs : ~Replicates(Decide27(n, hs, {}, {}))
-d\* a check "replicates" when it hands the replicator a task with at least one candidate node. (With overlapping
-\* rules the code as found keeps calling the replicator with an EMPTY candidate list: a holder remembered from
-\* an earlier rule does not lower the shortage of a later rule - a phantom shortage that copies nothing.)
-Replicates(d) == \E k \in 1..Len(d.tasks) : Len(d.tasks[k].nodes) > 0
-Quiet(hs) == \A n \in hs : LET d == Decide27(n, hs, {}, {}) IN ~Replicates(d) /\ d.del = "none"
-NoTasks(hs) == \A n \in hs : ~Replicates(Decide27(n, hs, {}, {}))
-,\* a check "replicates" when it hands the replicator a task with at least one candidate node. (With overlapping
-\* rules the code as found keeps calling the replicator with an EMPTY candidate list: a holder remembered from
-\* an earlier rule does not lower the shortage of a later rule - a phantom shortage that copies nothing.)
-Replicates(d) == \E k \in 1..Len(d.tasks) : Len(d.tasks[k].nodes) > 0
-Quiet(hs) == \A n \in hs : LET d == Decide27(n, hs, {}, {}) IN ~Replicates(d) /\ d.del = "none"
-NoTasks(hs) == \A n \in hs : ~Replicates(Decide27(n, hs, {}, {}))
- \* a check "replicates" when it hands the replicator a task with at least one candidate node. (With overlapping
-\* rules the code as found keeps calling the replicator with an EMPTY candidate list: a holder remembered from
-\* an earlier rule does not lower the shortage of a later rule - a phantom shortage that copies nothing.)
-Replicates(d) == \E k \in 1..Len(d.tasks) : Len(d.tasks[k].nodes) > 0
-Quiet(hs) == \A n \in hs : LET d == Decide27(n, hs, {}, {}) IN ~Replicates(d) /\ d.del = "none"
-NoTasks(hs) == \A n \in hs : ~Replicates(Decide27(n, hs, {}, {}))
-a\* a check "replicates" when it hands the replicator a task with at least one candidate node. (With overlapping
-\* rules the code as found keeps calling the replicator with an EMPTY candidate list: a holder remembered from
-\* an earlier rule does not lower the shortage of a later rule - a phantom shortage that copies nothing.)
-Replicates(d) == \E k \in 1..Len(d.tasks) : Len(d.tasks[k].nodes) > 0
-Quiet(hs) == \A n \in hs : LET d == Decide27(n, hs, {}, {}) IN ~Replicates(d) /\ d.del = "none"
-NoTasks(hs) == \A n \in hs : ~Replicates(Decide27(n, hs, {}, {}))
-c\* a check "replicates" when it hands the replicator a task with at least one candidate node. (With overlapping
-\* rules the code as found keeps calling the replicator with an EMPTY candidate list: a holder remembered from
-\* an earlier rule does not lower the shortage of a later rule - a phantom shortage that copies nothing.)
-Replicates(d) == \E k \in 1..Len(d.tasks) : Len(d.tasks[k].nodes) > 0
-Quiet(hs) == \A n \in hs : LET d == Decide27(n, hs, {}, {}) IN ~Replicates(d) /\ d.del = "none"
-NoTasks(hs) == \A n \in hs : ~Replicates(Decide27(n, hs, {}, {}))
-c\* a check "replicates" when it hands the replicator a task with at least one candidate node. (With overlapping
-\* rules the code as found keeps calling the replicator with an EMPTY candidate list: a holder remembered from
-\* an earlier rule does not lower the shortage of a later rule - a phantom shortage that copies nothing.)
-Replicates(d) == \E k \in 1..Len(d.tasks) : Len(d.tasks[k].nodes) > 0
-Quiet(hs) == \A n \in hs : LET d == Decide27(n, hs, {}, {}) IN ~Replicates(d) /\ d.del = "none"
-NoTasks(hs) == \A n \in hs : ~Replicates(Decide27(n, hs, {}, {}))
-)\* a check "replicates" when it hands the replicator a task with at least one candidate node. (With overlapping
-\* rules the code as found keeps calling the replicator with an EMPTY candidate list: a holder remembered from
-\* an earlier rule does not lower the shortage of a later rule - a phantom shortage that copies nothing.)
-Replicates(d) == \E k \in 1..Len(d.tasks) : Len(d.tasks[k].nodes) > 0
-Quiet(hs) == \A n \in hs : LET d == Decide27(n, hs, {}, {}) IN ~Replicates(d) /\ d.del = "none"
-NoTasks(hs) == \A n \in hs : ~Replicates(Decide27(n, hs, {}, {}))
-
-\* a check "replicates" when it hands the replicator a task with at least one candidate node. (With overlapping
-\* rules the code as found keeps calling the replicator with an EMPTY candidate list: a holder remembered from
-\* an earlier rule does not lower the shortage of a later rule - a phantom shortage that copies nothing.)
-Replicates(d) == \E k \in 1..Len(d.tasks) : Len(d.tasks[k].nodes) > 0
-Quiet(hs) == \A n \in hs : LET d == Decide27(n, hs, {}, {}) IN ~Replicates(d) /\ d.del = "none"
-NoTasks(hs) == \A n \in hs : ~Replicates(Decide27(n, hs, {}, {}))
-P\* a check "replicates" when it hands the replicator a task with at least one candidate node. (With overlapping
-\* rules the code as found keeps calling the replicator with an EMPTY candidate list: a holder remembered from
-\* an earlier rule does not lower the shortage of a later rule - a phantom shortage that copies nothing.)
-Replicates(d) == \E k \in 1..Len(d.tasks) : Len(d.tasks[k].nodes) > 0
-Quiet(hs) == \A n \in hs : LET d == Decide27(n, hs, {}, {}) IN ~Replicates(d) /\ d.del = "none"
-NoTasks(hs) == \A n \in hs : ~Replicates(Decide27(n, hs, {}, {}))
-u\* a check "replicates" when it hands the replicator a task with at least one candidate node. (With overlapping
-\* rules the code as found keeps calling the replicator with an EMPTY candidate list: a holder remembered from
-\* an earlier rule does not lower the shortage of a later rule - a phantom shortage that copies nothing.)
-Replicates(d) == \E k \in 1..Len(d.tasks) : Len(d.tasks[k].nodes) > 0
-Quiet(hs) == \A n \in hs : LET d == Decide27(n, hs, {}, {}) IN ~Replicates(d) /\ d.del = "none"
-NoTasks(hs) == \A n \in hs : ~Replicates(Decide27(n, hs, {}, {}))
-t\* a check "replicates" when it hands the replicator a task with at least one candidate node. (With overlapping
-\* rules the code as found keeps calling the replicator with an EMPTY candidate list: a holder remembered from
-\* an earlier rule does not lower the shortage of a later rule - a phantom shortage that copies nothing.)
-Replicates(d) == \E k \in 1..Len(d.tasks) : Len(d.tasks[k].nodes) > 0
-Quiet(hs) == \A n \in hs : LET d == Decide27(n, hs, {}, {}) IN ~Replicates(d) /\ d.del = "none"
-NoTasks(hs) == \A n \in hs : ~Replicates(Decide27(n, hs, {}, {}))
-T\* a check "replicates" when it hands the replicator a task with at least one candidate node. (With overlapping
-\* rules the code as found keeps calling the replicator with an EMPTY candidate list: a holder remembered from
-\* an earlier rule does not lower the shortage of a later rule - a phantom shortage that copies nothing.)
-Replicates(d) == \E k \in 1..Len(d.tasks) : Len(d.tasks[k].nodes) > 0
-Quiet(hs) == \A n \in hs : LET d == Decide27(n, hs, {}, {}) IN ~Replicates(d) /\ d.del = "none"
-NoTasks(hs) == \A n \in hs : ~Replicates(Decide27(n, hs, {}, {}))
-a\* a check "replicates" when it hands the replicator a task with at least one candidate node. (With overlapping
-\* rules the code as found keeps calling the replicator with an EMPTY candidate list: a holder remembered from
-\* an earlier rule does not lower the shortage of a later rule - a phantom shortage that copies nothing.)
-Replicates(d) == \E k \in 1..Len(d.tasks) : Len(d.tasks[k].nodes) > 0
-Quiet(hs) == \A n \in hs : LET d == Decide27(n, hs, {}, {}) IN ~Replicates(d) /\ d.del = "none"
-NoTasks(hs) == \A n \in hs : ~Replicates(Decide27(n, hs, {}, {}))
-s\* a check "replicates" when it hands the replicator a task with at least one candidate node. (With overlapping
-\* rules the code as found keeps calling the replicator with an EMPTY candidate list: a holder remembered from
-\* an earlier rule does not lower the shortage of a later rule - a phantom shortage that copies nothing.)
-Replicates(d) == \E k \in 1..Len(d.tasks) : Len(d.tasks[k].nodes) > 0
-Quiet(hs) == \A n \in hs : LET d == Decide27(n, hs, {}, {}) IN ~Replicates(d) /\ d.del = "none"
-NoTasks(hs) == \A n \in hs : ~Replicates(Decide27(n, hs, {}, {}))
-k\* a check "replicates" when it hands the replicator a task with at least one candidate node. (With overlapping
-\* rules the code as found keeps calling the replicator with an EMPTY candidate list: a holder remembered from
-\* an earlier rule does not lower the shortage of a later rule - a phantom shortage that copies nothing.)
-Replicates(d) == \E k \in 1..Len(d.tasks) : Len(d.tasks[k].nodes) > 0
-Quiet(hs) == \A n \in hs : LET d == Decide27(n, hs, {}, {}) IN ~Replicates(d) /\ d.del = "none"
-NoTasks(hs) == \A n \in hs : ~Replicates(Decide27(n, hs, {}, {}))
-(\* a check "replicates" when it hands the replicator a task with at least one candidate node. (With overlapping
-\* rules the code as found keeps calling the replicator with an EMPTY candidate list: a holder remembered from
-\* an earlier rule does not lower the shortage of a later rule - a phantom shortage that copies nothing.)
-Replicates(d) == \E k \in 1..Len(d.tasks) : Len(d.tasks[k].nodes) > 0
-Quiet(hs) == \A n \in hs : LET d == Decide27(n, hs, {}, {}) IN ~Replicates(d) /\ d.del = "none"
-NoTasks(hs) == \A n \in hs : ~Replicates(Decide27(n, hs, {}, {}))
-n\* a check "replicates" when it hands the replicator a task with at least one candidate node. (With overlapping
-\* rules the code as found keeps calling the replicator with an EMPTY candidate list: a holder remembered from
-\* an earlier rule does not lower the shortage of a later rule - a phantom shortage that copies nothing.)
-Replicates(d) == \E k \in 1..Len(d.tasks) : Len(d.tasks[k].nodes) > 0
-Quiet(hs) == \A n \in hs : LET d == Decide27(n, hs, {}, {}) IN ~Replicates(d) /\ d.del = "none"
-NoTasks(hs) == \A n \in hs : ~Replicates(Decide27(n, hs, {}, {}))
-,\* a check "replicates" when it hands the replicator a task with at least one candidate node. (With overlapping
-\* rules the code as found keeps calling the replicator with an EMPTY candidate list: a holder remembered from
-\* an earlier rule does not lower the shortage of a later rule - a phantom shortage that copies nothing.)
-Replicates(d) == \E k \in 1..Len(d.tasks) : Len(d.tasks[k].nodes) > 0
-Quiet(hs) == \A n \in hs : LET d == Decide27(n, hs, {}, {}) IN ~Replicates(d) /\ d.del = "none"
-NoTasks(hs) == \A n \in hs : ~Replicates(Decide27(n, hs, {}, {}))
- \* a check "replicates" when it hands the replicator a task with at least one candidate node. (With overlapping
-\* rules the code as found keeps calling the replicator with an EMPTY candidate list: a holder remembered from
-\* an earlier rule does not lower the shortage of a later rule - a phantom shortage that copies nothing.)
-Replicates(d) == \E k \in 1..Len(d.tasks) : Len(d.tasks[k].nodes) > 0
-Quiet(hs) == \A n \in hs : LET d == Decide27(n, hs, {}, {}) IN ~Replicates(d) /\ d.del = "none"
-NoTasks(hs) == \A n \in hs : ~Replicates(Decide27(n, hs, {}, {}))
-n\* a check "replicates" when it hands the replicator a task with at least one candidate node. (With overlapping
-\* rules the code as found keeps calling the replicator with an EMPTY candidate list: a holder remembered from
-\* an earlier rule does not lower the shortage of a later rule - a phantom shortage that copies nothing.)
-Replicates(d) == \E k \in 1..Len(d.tasks) : Len(d.tasks[k].nodes) > 0
-Quiet(hs) == \A n \in hs : LET d == Decide27(n, hs, {}, {}) IN ~Replicates(d) /\ d.del = "none"
-NoTasks(hs) == \A n \in hs : ~Replicates(Decide27(n, hs, {}, {}))
-o\* a check "replicates" when it hands the replicator a task with at least one candidate node. (With overlapping
-\* rules the code as found keeps calling the replicator with an EMPTY candidate list: a holder remembered from
-\* an earlier rule does not lower the shortage of a later rule - a phantom shortage that copies nothing.)
-Replicates(d) == \E k \in 1..Len(d.tasks) : Len(d.tasks[k].nodes) > 0
-Quiet(hs) == \A n \in hs : LET d == Decide27(n, hs, {}, {}) IN ~Replicates(d) /\ d.del = "none"
-NoTasks(hs) == \A n \in hs : ~Replicates(Decide27(n, hs, {}, {}))
-d\* a check "replicates" when it hands the replicator a task with at least one candidate node. (With overlapping
-\* rules the code as found keeps calling the replicator with an EMPTY candidate list: a holder remembered from
-\* an earlier rule does not lower the shortage of a later rule - a phantom shortage that copies nothing.)
-Replicates(d) == \E k \in 1..Len(d.tasks) : Len(d.tasks[k].nodes) > 0
-Quiet(hs) == \A n \in hs : LET d == Decide27(n, hs, {}, {}) IN ~Replicates(d) /\ d.del = "none"
-NoTasks(hs) == \A n \in hs : ~Replicates(Decide27(n, hs, {}, {}))
-e\* a check "replicates" when it hands the replicator a task with at least one candidate node. (With overlapping
-\* rules the code as found keeps calling the replicator with an EMPTY candidate list: a holder remembered from
-\* an earlier rule does not lower the shortage of a later rule - a phantom shortage that copies nothing.)
-Replicates(d) == \E k \in 1..Len(d.tasks) : Len(d.tasks[k].nodes) > 0
-Quiet(hs) == \A n \in hs : LET d == Decide27(n, hs, {}, {}) IN ~Replicates(d) /\ d.del = "none"
-NoTasks(hs) == \A n \in hs : ~Replicates(Decide27(n, hs, {}, {}))
-s\* a check "replicates" when it hands the replicator a task with at least one candidate node. (With overlapping
-\* rules the code as found keeps calling the replicator with an EMPTY candidate list: a holder remembered from
-\* an earlier rule does not lower the shortage of a later rule - a phantom shortage that copies nothing.)
-Replicates(d) == \E k \in 1..Len(d.tasks) : Len(d.tasks[k].nodes) > 0
-Quiet(hs) == \A n \in hs : LET d == Decide27(n, hs, {}, {}) IN ~Replicates(d) /\ d.del = "none"
-NoTasks(hs) == \A n \in hs : ~Replicates(Decide27(n, hs, {}, {}))
-,\* a check "replicates" when it hands the replicator a task with at least one candidate node. (With overlapping
-\* rules the code as found keeps calling the replicator with an EMPTY candidate list: a holder remembered from
-\* an earlier rule does not lower the shortage of a later rule - a phantom shortage that copies nothing.)
-Replicates(d) == \E k \in 1..Len(d.tasks) : Len(d.tasks[k].nodes) > 0
-Quiet(hs) == \A n \in hs : LET d == Decide27(n, hs, {}, {}) IN ~Replicates(d) /\ d.del = "none"
-NoTasks(hs) == \A n \in hs : ~Replicates(Decide27(n, hs, {}, {}))
- \* a check "replicates" when it hands the replicator a task with at least one candidate node. (With overlapping
-\* rules the code as found keeps calling the replicator with an EMPTY candidate list: a holder remembered from
-\* an earlier rule does not lower the shortage of a later rule - a phantom shortage that copies nothing.)
-Replicates(d) == \E k \in 1..Len(d.tasks) : Len(d.tasks[k].nodes) > 0
-Quiet(hs) == \A n \in hs : LET d == Decide27(n, hs, {}, {}) IN ~Replicates(d) /\ d.del = "none"
-NoTasks(hs) == \A n \in hs : ~Replicates(Decide27(n, hs, {}, {}))
-q\* a check "replicates" when it hands the replicator a task with at least one candidate node. (With overlapping
-\* rules the code as found keeps calling the replicator with an EMPTY candidate list: a holder remembered from
-\* an earlier rule does not lower the shortage of a later rule - a phantom shortage that copies nothing.)
-Replicates(d) == \E k \in 1..Len(d.tasks) : Len(d.tasks[k].nodes) > 0
-Quiet(hs) == \A n \in hs : LET d == Decide27(n, hs, {}, {}) IN ~Replicates(d) /\ d.del = "none"
-NoTasks(hs) == \A n \in hs : ~Replicates(Decide27(n, hs, {}, {}))
-,\* a check "replicates" when it hands the replicator a task with at least one candidate node. (With overlapping
-\* rules the code as found keeps calling the replicator with an EMPTY candidate list: a holder remembered from
-\* an earlier rule does not lower the shortage of a later rule - a phantom shortage that copies nothing.)
-Replicates(d) == \E k \in 1..Len(d.tasks) : Len(d.tasks[k].nodes) > 0
-Quiet(hs) == \A n \in hs : LET d == Decide27(n, hs, {}, {}) IN ~Replicates(d) /\ d.del = "none"
-NoTasks(hs) == \A n \in hs : ~Replicates(Decide27(n, hs, {}, {}))
- \* a check "replicates" when it hands the replicator a task with at least one candidate node. (With overlapping
-\* rules the code as found keeps calling the replicator with an EMPTY candidate list: a holder remembered from
-\* an earlier rule does not lower the shortage of a later rule - a phantom shortage that copies nothing.)
-Replicates(d) == \E k \in 1..Len(d.tasks) : Len(d.tasks[k].nodes) > 0
-Quiet(hs) == \A n \in hs : LET d == Decide27(n, hs, {}, {}) IN ~Replicates(d) /\ d.del = "none"
-NoTasks(hs) == \A n \in hs : ~Replicates(Decide27(n, hs, {}, {}))
-d\* a check "replicates" when it hands the replicator a task with at least one candidate node. (With overlapping
-\* rules the code as found keeps calling the replicator with an EMPTY candidate list: a holder remembered from
-\* an earlier rule does not lower the shortage of a later rule - a phantom shortage that copies nothing.)
-Replicates(d) == \E k \in 1..Len(d.tasks) : Len(d.tasks[k].nodes) > 0
-Quiet(hs) == \A n \in hs : LET d == Decide27(n, hs, {}, {}) IN ~Replicates(d) /\ d.del = "none"
-NoTasks(hs) == \A n \in hs : ~Replicates(Decide27(n, hs, {}, {}))
-o\* a check "replicates" when it hands the replicator a task with at least one candidate node. (With overlapping
-\* rules the code as found keeps calling the replicator with an EMPTY candidate list: a holder remembered from
-\* an earlier rule does not lower the shortage of a later rule - a phantom shortage that copies nothing.)
-Replicates(d) == \E k \in 1..Len(d.tasks) : Len(d.tasks[k].nodes) > 0
-Quiet(hs) == \A n \in hs : LET d == Decide27(n, hs, {}, {}) IN ~Replicates(d) /\ d.del = "none"
-NoTasks(hs) == \A n \in hs : ~Replicates(Decide27(n, hs, {}, {}))
-w\* a check "replicates" when it hands the replicator a task with at least one candidate node. (With overlapping
-\* rules the code as found keeps calling the replicator with an EMPTY candidate list: a holder remembered from
-\* an earlier rule does not lower the shortage of a later rule - a phantom shortage that copies nothing.)
-Replicates(d) == \E k \in 1..Len(d.tasks) : Len(d.tasks[k].nodes) > 0
-Quiet(hs) == \A n \in hs : LET d == Decide27(n, hs, {}, {}) IN ~Replicates(d) /\ d.del = "none"
-NoTasks(hs) == \A n \in hs : ~Replicates(Decide27(n, hs, {}, {}))
-n\* a check "replicates" when it hands the replicator a task with at least one candidate node. (With overlapping
-\* rules the code as found keeps calling the replicator with an EMPTY candidate list: a holder remembered from
-\* an earlier rule does not lower the shortage of a later rule - a phantom shortage that copies nothing.)
-Replicates(d) == \E k \in 1..Len(d.tasks) : Len(d.tasks[k].nodes) > 0
-Quiet(hs) == \A n \in hs : LET d == Decide27(n, hs, {}, {}) IN ~Replicates(d) /\ d.del = "none"
-NoTasks(hs) == \A n \in hs : ~Replicates(Decide27(n, hs, {}, {}))
-,\* a check "replicates" when it hands the replicator a task with at least one candidate node. (With overlapping
-\* rules the code as found keeps calling the replicator with an EMPTY candidate list: a holder remembered from
-\* an earlier rule does not lower the shortage of a later rule - a phantom shortage that copies nothing.)
-Replicates(d) == \E k \in 1..Len(d.tasks) : Len(d.tasks[k].nodes) > 0
-Quiet(hs) == \A n \in hs : LET d == Decide27(n, hs, {}, {}) IN ~Replicates(d) /\ d.del = "none"
-NoTasks(hs) == \A n \in hs : ~Replicates(Decide27(n, hs, {}, {}))
- \* a check "replicates" when it hands the replicator a task with at least one candidate node. (With overlapping
-\* rules the code as found keeps calling the replicator with an EMPTY candidate list: a holder remembered from
-\* an earlier rule does not lower the shortage of a later rule - a phantom shortage that copies nothing.)
-Replicates(d) == \E k \in 1..Len(d.tasks) : Len(d.tasks[k].nodes) > 0
-Quiet(hs) == \A n \in hs : LET d == Decide27(n, hs, {}, {}) IN ~Replicates(d) /\ d.del = "none"
-NoTasks(hs) == \A n \in hs : ~Replicates(Decide27(n, hs, {}, {}))
-r\* a check "replicates" when it hands the replicator a task with at least one candidate node. (With overlapping
-\* rules the code as found keeps calling the replicator with an EMPTY candidate list: a holder remembered from
-\* an earlier rule does not lower the shortage of a later rule - a phantom shortage that copies nothing.)
-Replicates(d) == \E k \in 1..Len(d.tasks) : Len(d.tasks[k].nodes) > 0
-Quiet(hs) == \A n \in hs : LET d == Decide27(n, hs, {}, {}) IN ~Replicates(d) /\ d.del = "none"
-NoTasks(hs) == \A n \in hs : ~Replicates(Decide27(n, hs, {}, {}))
-e\* a check "replicates" when it hands the replicator a task with at least one candidate node. (With overlapping
-\* rules the code as found keeps calling the replicator with an EMPTY candidate list: a holder remembered from
-\* an earlier rule does not lower the shortage of a later rule - a phantom shortage that copies nothing.)
-Replicates(d) == \E k \in 1..Len(d.tasks) : Len(d.tasks[k].nodes) > 0
-Quiet(hs) == \A n \in hs : LET d == Decide27(n, hs, {}, {}) IN ~Replicates(d) /\ d.del = "none"
-NoTasks(hs) == \A n \in hs : ~Replicates(Decide27(n, hs, {}, {}))
-f\* a check "replicates" when it hands the replicator a task with at least one candidate node. (With overlapping
-\* rules the code as found keeps calling the replicator with an EMPTY candidate list: a holder remembered from
-\* an earlier rule does not lower the shortage of a later rule - a phantom shortage that copies nothing.)
-Replicates(d) == \E k \in 1..Len(d.tasks) : Len(d.tasks[k].nodes) > 0
-Quiet(hs) == \A n \in hs : LET d == Decide27(n, hs, {}, {}) IN ~Replicates(d) /\ d.del = "none"
-NoTasks(hs) == \A n \in hs : ~Replicates(Decide27(n, hs, {}, {}))
-u\* a check "replicates" when it hands the replicator a task with at least one candidate node. (With overlapping
-\* rules the code as found keeps calling the replicator with an EMPTY candidate list: a holder remembered from
-\* an earlier rule does not lower the shortage of a later rule - a phantom shortage that copies nothing.)
-Replicates(d) == \E k \in 1..Len(d.tasks) : Len(d.tasks[k].nodes) > 0
-Quiet(hs) == \A n \in hs : LET d == Decide27(n, hs, {}, {}) IN ~Replicates(d) /\ d.del = "none"
-NoTasks(hs) == \A n \in hs : ~Replicates(Decide27(n, hs, {}, {}))
-s\* a check "replicates" when it hands the replicator a task with at least one candidate node. (With overlapping
-\* rules the code as found keeps calling the replicator with an EMPTY candidate list: a holder remembered from
-\* an earlier rule does not lower the shortage of a later rule - a phantom shortage that copies nothing.)
-Replicates(d) == \E k \in 1..Len(d.tasks) : Len(d.tasks[k].nodes) > 0
-Quiet(hs) == \A n \in hs : LET d == Decide27(n, hs, {}, {}) IN ~Replicates(d) /\ d.del = "none"
-NoTasks(hs) == \A n \in hs : ~Replicates(Decide27(n, hs, {}, {}))
-e\* a check "replicates" when it hands the replicator a task with at least one candidate node. (With overlapping
-\* rules the code as found keeps calling the replicator with an EMPTY candidate list: a holder remembered from
-\* an earlier rule does not lower the shortage of a later rule - a phantom shortage that copies nothing.)
-Replicates(d) == \E k \in 1..Len(d.tasks) : Len(d.tasks[k].nodes) > 0
-Quiet(hs) == \A n \in hs : LET d == Decide27(n, hs, {}, {}) IN ~Replicates(d) /\ d.del = "none"
-NoTasks(hs) == \A n \in hs : ~Replicates(Decide27(n, hs, {}, {}))
-)\* a check "replicates" when it hands the replicator a task with at least one candidate node. (With overlapping
-\* rules the code as found keeps calling the replicator with an EMPTY candidate list: a holder remembered from
-\* an earlier rule does not lower the shortage of a later rule - a phantom shortage that copies nothing.)
-Replicates(d) == \E k \in 1..Len(d.tasks) : Len(d.tasks[k].nodes) > 0
-Quiet(hs) == \A n \in hs : LET d == Decide27(n, hs, {}, {}) IN ~Replicates(d) /\ d.del = "none"
-NoTasks(hs) == \A n \in hs : ~Replicates(Decide27(n, hs, {}, {}))
- \* a check "replicates" when it hands the replicator a task with at least one candidate node. (With overlapping
-\* rules the code as found keeps calling the replicator with an EMPTY candidate list: a holder remembered from
-\* an earlier rule does not lower the shortage of a later rule - a phantom shortage that copies nothing.)
-Replicates(d) == \E k \in 1..Len(d.tasks) : Len(d.tasks[k].nodes) > 0
-Quiet(hs) == \A n \in hs : LET d == Decide27(n, hs, {}, {}) IN ~Replicates(d) /\ d.del = "none"
-NoTasks(hs) == \A n \in hs : ~Replicates(Decide27(n, hs, {}, {}))
-=\* a check "replicates" when it hands the replicator a task with at least one candidate node. (With overlapping
-\* rules the code as found keeps calling the replicator with an EMPTY candidate list: a holder remembered from
-\* an earlier rule does not lower the shortage of a later rule - a phantom shortage that copies nothing.)
-Replicates(d) == \E k \in 1..Len(d.tasks) : Len(d.tasks[k].nodes) > 0
-Quiet(hs) == \A n \in hs : LET d == Decide27(n, hs, {}, {}) IN ~Replicates(d) /\ d.del = "none"
-NoTasks(hs) == \A n \in hs : ~Replicates(Decide27(n, hs, {}, {}))
-=\* a check "replicates" when it hands the replicator a task with at least one candidate node. (With overlapping
-\* rules the code as found keeps calling the replicator with an EMPTY candidate list: a holder remembered from
-\* an earlier rule does not lower the shortage of a later rule - a phantom shortage that copies nothing.)
-Replicates(d) == \E k \in 1..Len(d.tasks) : Len(d.tasks[k].nodes) > 0
-Quiet(hs) == \A n \in hs : LET d == Decide27(n, hs, {}, {}) IN ~Replicates(d) /\ d.del = "none"
-NoTasks(hs) == \A n \in hs : ~Replicates(Decide27(n, hs, {}, {}))
-
-\* a check "replicates" when it hands the replicator a task with at least one candidate node. (With overlapping
-\* rules the code as found keeps calling the replicator with an EMPTY candidate list: a holder remembered from
-\* an earlier rule does not lower the shortage of a later rule - a phantom shortage that copies nothing.)
-Replicates(d) == \E k \in 1..Len(d.tasks) : Len(d.tasks[k].nodes) > 0
-Quiet(hs) == \A n \in hs : LET d == Decide27(n, hs, {}, {}) IN ~Replicates(d) /\ d.del = "none"
-NoTasks(hs) == \A n \in hs : ~Replicates(Decide27(n, hs, {}, {}))
- \* a check "replicates" when it hands the replicator a task with at least one candidate node. (With overlapping
-\* rules the code as found keeps calling the replicator with an EMPTY candidate list: a holder remembered from
-\* an earlier rule does not lower the shortage of a later rule - a phantom shortage that copies nothing.)
-Replicates(d) == \E k \in 1..Len(d.tasks) : Len(d.tasks[k].nodes) > 0
-Quiet(hs) == \A n \in hs : LET d == Decide27(n, hs, {}, {}) IN ~Replicates(d) /\ d.del = "none"
-NoTasks(hs) == \A n \in hs : ~Replicates(Decide27(n, hs, {}, {}))
- \* a check "replicates" when it hands the replicator a task with at least one candidate node. (With overlapping
-\* rules the code as found keeps calling the replicator with an EMPTY candidate list: a holder remembered from
-\* an earlier rule does not lower the shortage of a later rule - a phantom shortage that copies nothing.)
-Replicates(d) == \E k \in 1..Len(d.tasks) : Len(d.tasks[k].nodes) > 0
-Quiet(hs) == \A n \in hs : LET d == Decide27(n, hs, {}, {}) IN ~Replicates(d) /\ d.del = "none"
-NoTasks(hs) == \A n \in hs : ~Replicates(Decide27(n, hs, {}, {}))
-/\* a check "replicates" when it hands the replicator a task with at least one candidate node. (With overlapping
-\* rules the code as found keeps calling the replicator with an EMPTY candidate list: a holder remembered from
-\* an earlier rule does not lower the shortage of a later rule - a phantom shortage that copies nothing.)
-Replicates(d) == \E k \in 1..Len(d.tasks) : Len(d.tasks[k].nodes) > 0
-Quiet(hs) == \A n \in hs : LET d == Decide27(n, hs, {}, {}) IN ~Replicates(d) /\ d.del = "none"
-NoTasks(hs) == \A n \in hs : ~Replicates(Decide27(n, hs, {}, {}))
-\\* a check "replicates" when it hands the replicator a task with at least one candidate node. (With overlapping
-\* rules the code as found keeps calling the replicator with an EMPTY candidate list: a holder remembered from
-\* an earlier rule does not lower the shortage of a later rule - a phantom shortage that copies nothing.)
-Replicates(d) == \E k \in 1..Len(d.tasks) : Len(d.tasks[k].nodes) > 0
-Quiet(hs) == \A n \in hs : LET d == Decide27(n, hs, {}, {}) IN ~Replicates(d) /\ d.del = "none"
-NoTasks(hs) == \A n \in hs : ~Replicates(Decide27(n, hs, {}, {}))
- \* a check "replicates" when it hands the replicator a task with at least one candidate node. (With overlapping
-\* rules the code as found keeps calling the replicator with an EMPTY candidate list: a holder remembered from
-\* an earlier rule does not lower the shortage of a later rule - a phantom shortage that copies nothing.)
-Replicates(d) == \E k \in 1..Len(d.tasks) : Len(d.tasks[k].nodes) > 0
-Quiet(hs) == \A n \in hs : LET d == Decide27(n, hs, {}, {}) IN ~Replicates(d) /\ d.del = "none"
-NoTasks(hs) == \A n \in hs : ~Replicates(Decide27(n, hs, {}, {}))
-n\* a check "replicates" when it hands the replicator a task with at least one candidate node. (With overlapping
-\* rules the code as found keeps calling the replicator with an EMPTY candidate list: a holder remembered from
-\* an earlier rule does not lower the shortage of a later rule - a phantom shortage that copies nothing.)
-Replicates(d) == \E k \in 1..Len(d.tasks) : Len(d.tasks[k].nodes) > 0
-Quiet(hs) == \A n \in hs : LET d == Decide27(n, hs, {}, {}) IN ~Replicates(d) /\ d.del = "none"
-NoTasks(hs) == \A n \in hs : ~Replicates(Decide27(n, hs, {}, {}))
- \* a check "replicates" when it hands the replicator a task with at least one candidate node. (With overlapping
-\* rules the code as found keeps calling the replicator with an EMPTY candidate list: a holder remembered from
-\* an earlier rule does not lower the shortage of a later rule - a phantom shortage that copies nothing.)
-Replicates(d) == \E k \in 1..Len(d.tasks) : Len(d.tasks[k].nodes) > 0
-Quiet(hs) == \A n \in hs : LET d == Decide27(n, hs, {}, {}) IN ~Replicates(d) /\ d.del = "none"
-NoTasks(hs) == \A n \in hs : ~Replicates(Decide27(n, hs, {}, {}))
-\\* a check "replicates" when it hands the replicator a task with at least one candidate node. (With overlapping
-\* rules the code as found keeps calling the replicator with an EMPTY candidate list: a holder remembered from
-\* an earlier rule does not lower the shortage of a later rule - a phantom shortage that copies nothing.)
-Replicates(d) == \E k \in 1..Len(d.tasks) : Len(d.tasks[k].nodes) > 0
-Quiet(hs) == \A n \in hs : LET d == Decide27(n, hs, {}, {}) IN ~Replicates(d) /\ d.del = "none"
-NoTasks(hs) == \A n \in hs : ~Replicates(Decide27(n, hs, {}, {}))
-n\* a check "replicates" when it hands the replicator a task with at least one candidate node. (With overlapping
-\* rules the code as found keeps calling the replicator with an EMPTY candidate list: a holder remembered from
-\* an earlier rule does not lower the shortage of a later rule - a phantom shortage that copies nothing.)
-Replicates(d) == \E k \in 1..Len(d.tasks) : Len(d.tasks[k].nodes) > 0
-Quiet(hs) == \A n \in hs : LET d == Decide27(n, hs, {}, {}) IN ~Replicates(d) /\ d.del = "none"
-NoTasks(hs) == \A n \in hs : ~Replicates(Decide27(n, hs, {}, {}))
-o\* a check "replicates" when it hands the replicator a task with at least one candidate node. (With overlapping
-\* rules the code as found keeps calling the replicator with an EMPTY candidate list: a holder remembered from
-\* an earlier rule does not lower the shortage of a later rule - a phantom shortage that copies nothing.)
-Replicates(d) == \E k \in 1..Len(d.tasks) : Len(d.tasks[k].nodes) > 0
-Quiet(hs) == \A n \in hs : LET d == Decide27(n, hs, {}, {}) IN ~Replicates(d) /\ d.del = "none"
-NoTasks(hs) == \A n \in hs : ~Replicates(Decide27(n, hs, {}, {}))
-t\* a check "replicates" when it hands the replicator a task with at least one candidate node. (With overlapping
-\* rules the code as found keeps calling the replicator with an EMPTY candidate list: a holder remembered from
-\* an earlier rule does not lower the shortage of a later rule - a phantom shortage that copies nothing.)
-Replicates(d) == \E k \in 1..Len(d.tasks) : Len(d.tasks[k].nodes) > 0
-Quiet(hs) == \A n \in hs : LET d == Decide27(n, hs, {}, {}) IN ~Replicates(d) /\ d.del = "none"
-NoTasks(hs) == \A n \in hs : ~Replicates(Decide27(n, hs, {}, {}))
-i\* a check "replicates" when it hands the replicator a task with at least one candidate node. (With overlapping
-\* rules the code as found keeps calling the replicator with an EMPTY candidate list: a holder remembered from
-\* an earlier rule does not lower the shortage of a later rule - a phantom shortage that copies nothing.)
-Replicates(d) == \E k \in 1..Len(d.tasks) : Len(d.tasks[k].nodes) > 0
-Quiet(hs) == \A n \in hs : LET d == Decide27(n, hs, {}, {}) IN ~Replicates(d) /\ d.del = "none"
-NoTasks(hs) == \A n \in hs : ~Replicates(Decide27(n, hs, {}, {}))
-n\* a check "replicates" when it hands the replicator a task with at least one candidate node. (With overlapping
-\* rules the code as found keeps calling the replicator with an EMPTY candidate list: a holder remembered from
-\* an earlier rule does not lower the shortage of a later rule - a phantom shortage that copies nothing.)
-Replicates(d) == \E k \in 1..Len(d.tasks) : Len(d.tasks[k].nodes) > 0
-Quiet(hs) == \A n \in hs : LET d == Decide27(n, hs, {}, {}) IN ~Replicates(d) /\ d.del = "none"
-NoTasks(hs) == \A n \in hs : ~Replicates(Decide27(n, hs, {}, {}))
- \* a check "replicates" when it hands the replicator a task with at least one candidate node. (With overlapping
-\* rules the code as found keeps calling the replicator with an EMPTY candidate list: a holder remembered from
-\* an earlier rule does not lower the shortage of a later rule - a phantom shortage that copies nothing.)
-Replicates(d) == \E k \in 1..Len(d.tasks) : Len(d.tasks[k].nodes) > 0
-Quiet(hs) == \A n \in hs : LET d == Decide27(n, hs, {}, {}) IN ~Replicates(d) /\ d.del = "none"
-NoTasks(hs) == \A n \in hs : ~Replicates(Decide27(n, hs, {}, {}))
-d\* a check "replicates" when it hands the replicator a task with at least one candidate node. (With overlapping
-\* rules the code as found keeps calling the replicator with an EMPTY candidate list: a holder remembered from
-\* an earlier rule does not lower the shortage of a later rule - a phantom shortage that copies nothing.)
-Replicates(d) == \E k \in 1..Len(d.tasks) : Len(d.tasks[k].nodes) > 0
-Quiet(hs) == \A n \in hs : LET d == Decide27(n, hs, {}, {}) IN ~Replicates(d) /\ d.del = "none"
-NoTasks(hs) == \A n \in hs : ~Replicates(Decide27(n, hs, {}, {}))
-o\* a check "replicates" when it hands the replicator a task with at least one candidate node. (With overlapping
-\* rules the code as found keeps calling the replicator with an EMPTY candidate list: a holder remembered from
-\* an earlier rule does not lower the shortage of a later rule - a phantom shortage that copies nothing.)
-Replicates(d) == \E k \in 1..Len(d.tasks) : Len(d.tasks[k].nodes) > 0
-Quiet(hs) == \A n \in hs : LET d == Decide27(n, hs, {}, {}) IN ~Replicates(d) /\ d.del = "none"
-NoTasks(hs) == \A n \in hs : ~Replicates(Decide27(n, hs, {}, {}))
-w\* a check "replicates" when it hands the replicator a task with at least one candidate node. (With overlapping
-\* rules the code as found keeps calling the replicator with an EMPTY candidate list: a holder remembered from
-\* an earlier rule does not lower the shortage of a later rule - a phantom shortage that copies nothing.)
-Replicates(d) == \E k \in 1..Len(d.tasks) : Len(d.tasks[k].nodes) > 0
-Quiet(hs) == \A n \in hs : LET d == Decide27(n, hs, {}, {}) IN ~Replicates(d) /\ d.del = "none"
-NoTasks(hs) == \A n \in hs : ~Replicates(Decide27(n, hs, {}, {}))
-n\* a check "replicates" when it hands the replicator a task with at least one candidate node. (With overlapping
-\* rules the code as found keeps calling the replicator with an EMPTY candidate list: a holder remembered from
-\* an earlier rule does not lower the shortage of a later rule - a phantom shortage that copies nothing.)
-Replicates(d) == \E k \in 1..Len(d.tasks) : Len(d.tasks[k].nodes) > 0
-Quiet(hs) == \A n \in hs : LET d == Decide27(n, hs, {}, {}) IN ~Replicates(d) /\ d.del = "none"
-NoTasks(hs) == \A n \in hs : ~Replicates(Decide27(n, hs, {}, {}))
-
-\* a check "replicates" when it hands the replicator a task with at least one candidate node. (With overlapping
-\* rules the code as found keeps calling the replicator with an EMPTY candidate list: a holder remembered from
-\* an earlier rule does not lower the shortage of a later rule - a phantom shortage that copies nothing.)
-Replicates(d) == \E k \in 1..Len(d.tasks) : Len(d.tasks[k].nodes) > 0
-Quiet(hs) == \A n \in hs : LET d == Decide27(n, hs, {}, {}) IN ~Replicates(d) /\ d.del = "none"
-NoTasks(hs) == \A n \in hs : ~Replicates(Decide27(n, hs, {}, {}))
- \* a check "replicates" when it hands the replicator a task with at least one candidate node. (With overlapping
-\* rules the code as found keeps calling the replicator with an EMPTY candidate list: a holder remembered from
-\* an earlier rule does not lower the shortage of a later rule - a phantom shortage that copies nothing.)
-Replicates(d) == \E k \in 1..Len(d.tasks) : Len(d.tasks[k].nodes) > 0
-Quiet(hs) == \A n \in hs : LET d == Decide27(n, hs, {}, {}) IN ~Replicates(d) /\ d.del = "none"
-NoTasks(hs) == \A n \in hs : ~Replicates(Decide27(n, hs, {}, {}))
- \* a check "replicates" when it hands the replicator a task with at least one candidate node. (With overlapping
-\* rules the code as found keeps calling the replicator with an EMPTY candidate list: a holder remembered from
-\* an earlier rule does not lower the shortage of a later rule - a phantom shortage that copies nothing.)
-Replicates(d) == \E k \in 1..Len(d.tasks) : Len(d.tasks[k].nodes) > 0
-Quiet(hs) == \A n \in hs : LET d == Decide27(n, hs, {}, {}) IN ~Replicates(d) /\ d.del = "none"
-NoTasks(hs) == \A n \in hs : ~Replicates(Decide27(n, hs, {}, {}))
-/\* a check "replicates" when it hands the replicator a task with at least one candidate node. (With overlapping
-\* rules the code as found keeps calling the replicator with an EMPTY candidate list: a holder remembered from
-\* an earlier rule does not lower the shortage of a later rule - a phantom shortage that copies nothing.)
-Replicates(d) == \E k \in 1..Len(d.tasks) : Len(d.tasks[k].nodes) > 0
-Quiet(hs) == \A n \in hs : LET d == Decide27(n, hs, {}, {}) IN ~Replicates(d) /\ d.del = "none"
-NoTasks(hs) == \A n \in hs : ~Replicates(Decide27(n, hs, {}, {}))
-\\* a check "replicates" when it hands the replicator a task with at least one candidate node. (With overlapping
-\* rules the code as found keeps calling the replicator with an EMPTY candidate list: a holder remembered from
-\* an earlier rule does not lower the shortage of a later rule - a phantom shortage that copies nothing.)
-Replicates(d) == \E k \in 1..Len(d.tasks) : Len(d.tasks[k].nodes) > 0
-Quiet(hs) == \A n \in hs : LET d == Decide27(n, hs, {}, {}) IN ~Replicates(d) /\ d.del = "none"
-NoTasks(hs) == \A n \in hs : ~Replicates(Decide27(n, hs, {}, {}))
- \* a check "replicates" when it hands the replicator a task with at least one candidate node. (With overlapping
-\* rules the code as found keeps calling the replicator with an EMPTY candidate list: a holder remembered from
-\* an earlier rule does not lower the shortage of a later rule - a phantom shortage that copies nothing.)
-Replicates(d) == \E k \in 1..Len(d.tasks) : Len(d.tasks[k].nodes) > 0
-Quiet(hs) == \A n \in hs : LET d == Decide27(n, hs, {}, {}) IN ~Replicates(d) /\ d.del = "none"
-NoTasks(hs) == \A n \in hs : ~Replicates(Decide27(n, hs, {}, {}))
-L\* a check "replicates" when it hands the replicator a task with at least one candidate node. (With overlapping
-\* rules the code as found keeps calling the replicator with an EMPTY candidate list: a holder remembered from
-\* an earlier rule does not lower the shortage of a later rule - a phantom shortage that copies nothing.)
-Replicates(d) == \E k \in 1..Len(d.tasks) : Len(d.tasks[k].nodes) > 0
-Quiet(hs) == \A n \in hs : LET d == Decide27(n, hs, {}, {}) IN ~Replicates(d) /\ d.del = "none"
-NoTasks(hs) == \A n \in hs : ~Replicates(Decide27(n, hs, {}, {}))
-E\* a check "replicates" when it hands the replicator a task with at least one candidate node. (With overlapping
-\* rules the code as found keeps calling the replicator with an EMPTY candidate list: a holder remembered from
-\* an earlier rule does not lower the shortage of a later rule - a phantom shortage that copies nothing.)
-Replicates(d) == \E k \in 1..Len(d.tasks) : Len(d.tasks[k].nodes) > 0
-Quiet(hs) == \A n \in hs : LET d == Decide27(n, hs, {}, {}) IN ~Replicates(d) /\ d.del = "none"
-NoTasks(hs) == \A n \in hs : ~Replicates(Decide27(n, hs, {}, {}))
-T\* a check "replicates" when it hands the replicator a task with at least one candidate node. (With overlapping
-\* rules the code as found keeps calling the replicator with an EMPTY candidate list: a holder remembered from
-\* an earlier rule does not lower the shortage of a later rule - a phantom shortage that copies nothing.)
-Replicates(d) == \E k \in 1..Len(d.tasks) : Len(d.tasks[k].nodes) > 0
-Quiet(hs) == \A n \in hs : LET d == Decide27(n, hs, {}, {}) IN ~Replicates(d) /\ d.del = "none"
-NoTasks(hs) == \A n \in hs : ~Replicates(Decide27(n, hs, {}, {}))
- \* a check "replicates" when it hands the replicator a task with at least one candidate node. (With overlapping
-\* rules the code as found keeps calling the replicator with an EMPTY candidate list: a holder remembered from
-\* an earlier rule does not lower the shortage of a later rule - a phantom shortage that copies nothing.)
-Replicates(d) == \E k \in 1..Len(d.tasks) : Len(d.tasks[k].nodes) > 0
-Quiet(hs) == \A n \in hs : LET d == Decide27(n, hs, {}, {}) IN ~Replicates(d) /\ d.del = "none"
-NoTasks(hs) == \A n \in hs : ~Replicates(Decide27(n, hs, {}, {}))
-o\* a check "replicates" when it hands the replicator a task with at least one candidate node. (With overlapping
-\* rules the code as found keeps calling the replicator with an EMPTY candidate list: a holder remembered from
-\* an earlier rule does not lower the shortage of a later rule - a phantom shortage that copies nothing.)
-Replicates(d) == \E k \in 1..Len(d.tasks) : Len(d.tasks[k].nodes) > 0
-Quiet(hs) == \A n \in hs : LET d == Decide27(n, hs, {}, {}) IN ~Replicates(d) /\ d.del = "none"
-NoTasks(hs) == \A n \in hs : ~Replicates(Decide27(n, hs, {}, {}))
-k\* a check "replicates" when it hands the replicator a task with at least one candidate node. (With overlapping
-\* rules the code as found keeps calling the replicator with an EMPTY candidate list: a holder remembered from
-\* an earlier rule does not lower the shortage of a later rule - a phantom shortage that copies nothing.)
-Replicates(d) == \E k \in 1..Len(d.tasks) : Len(d.tasks[k].nodes) > 0
-Quiet(hs) == \A n \in hs : LET d == Decide27(n, hs, {}, {}) IN ~Replicates(d) /\ d.del = "none"
-NoTasks(hs) == \A n \in hs : ~Replicates(Decide27(n, hs, {}, {}))
- \* a check "replicates" when it hands the replicator a task with at least one candidate node. (With overlapping
-\* rules the code as found keeps calling the replicator with an EMPTY candidate list: a holder remembered from
-\* an earlier rule does not lower the shortage of a later rule - a phantom shortage that copies nothing.)
-Replicates(d) == \E k \in 1..Len(d.tasks) : Len(d.tasks[k].nodes) > 0
-Quiet(hs) == \A n \in hs : LET d == Decide27(n, hs, {}, {}) IN ~Replicates(d) /\ d.del = "none"
-NoTasks(hs) == \A n \in hs : ~Replicates(Decide27(n, hs, {}, {}))
-=\* a check "replicates" when it hands the replicator a task with at least one candidate node. (With overlapping
-\* rules the code as found keeps calling the replicator with an EMPTY candidate list: a holder remembered from
-\* an earlier rule does not lower the shortage of a later rule - a phantom shortage that copies nothing.)
-Replicates(d) == \E k \in 1..Len(d.tasks) : Len(d.tasks[k].nodes) > 0
-Quiet(hs) == \A n \in hs : LET d == Decide27(n, hs, {}, {}) IN ~Replicates(d) /\ d.del = "none"
-NoTasks(hs) == \A n \in hs : ~Replicates(Decide27(n, hs, {}, {}))
-=\* a check "replicates" when it hands the replicator a task with at least one candidate node. (With overlapping
-\* rules the code as found keeps calling the replicator with an EMPTY candidate list: a holder remembered from
-\* an earlier rule does not lower the shortage of a later rule - a phantom shortage that copies nothing.)
-Replicates(d) == \E k \in 1..Len(d.tasks) : Len(d.tasks[k].nodes) > 0
-Quiet(hs) == \A n \in hs : LET d == Decide27(n, hs, {}, {}) IN ~Replicates(d) /\ d.del = "none"
-NoTasks(hs) == \A n \in hs : ~Replicates(Decide27(n, hs, {}, {}))
- \* a check "replicates" when it hands the replicator a task with at least one candidate node. (With overlapping
-\* rules the code as found keeps calling the replicator with an EMPTY candidate list: a holder remembered from
-\* an earlier rule does not lower the shortage of a later rule - a phantom shortage that copies nothing.)
-Replicates(d) == \E k \in 1..Len(d.tasks) : Len(d.tasks[k].nodes) > 0
-Quiet(hs) == \A n \in hs : LET d == Decide27(n, hs, {}, {}) IN ~Replicates(d) /\ d.del = "none"
-NoTasks(hs) == \A n \in hs : ~Replicates(Decide27(n, hs, {}, {}))
-R\* a check "replicates" when it hands the replicator a task with at least one candidate node. (With overlapping
-\* rules the code as found keeps calling the replicator with an EMPTY candidate list: a holder remembered from
-\* an earlier rule does not lower the shortage of a later rule - a phantom shortage that copies nothing.)
-Replicates(d) == \E k \in 1..Len(d.tasks) : Len(d.tasks[k].nodes) > 0
-Quiet(hs) == \A n \in hs : LET d == Decide27(n, hs, {}, {}) IN ~Replicates(d) /\ d.del = "none"
-NoTasks(hs) == \A n \in hs : ~Replicates(Decide27(n, hs, {}, {}))
-e\* a check "replicates" when it hands the replicator a task with at least one candidate node. (With overlapping
-\* rules the code as found keeps calling the replicator with an EMPTY candidate list: a holder remembered from
-\* an earlier rule does not lower the shortage of a later rule - a phantom shortage that copies nothing.)
-Replicates(d) == \E k \in 1..Len(d.tasks) : Len(d.tasks[k].nodes) > 0
-Quiet(hs) == \A n \in hs : LET d == Decide27(n, hs, {}, {}) IN ~Replicates(d) /\ d.del = "none"
-NoTasks(hs) == \A n \in hs : ~Replicates(Decide27(n, hs, {}, {}))
-p\* a check "replicates" when it hands the replicator a task with at least one candidate node. (With overlapping
-\* rules the code as found keeps calling the replicator with an EMPTY candidate list: a holder remembered from
-\* an earlier rule does not lower the shortage of a later rule - a phantom shortage that copies nothing.)
-Replicates(d) == \E k \in 1..Len(d.tasks) : Len(d.tasks[k].nodes) > 0
-Quiet(hs) == \A n \in hs : LET d == Decide27(n, hs, {}, {}) IN ~Replicates(d) /\ d.del = "none"
-NoTasks(hs) == \A n \in hs : ~Replicates(Decide27(n, hs, {}, {}))
-l\* a check "replicates" when it hands the replicator a task with at least one candidate node. (With overlapping
-\* rules the code as found keeps calling the replicator with an EMPTY candidate list: a holder remembered from
-\* an earlier rule does not lower the shortage of a later rule - a phantom shortage that copies nothing.)
-Replicates(d) == \E k \in 1..Len(d.tasks) : Len(d.tasks[k].nodes) > 0
-Quiet(hs) == \A n \in hs : LET d == Decide27(n, hs, {}, {}) IN ~Replicates(d) /\ d.del = "none"
-NoTasks(hs) == \A n \in hs : ~Replicates(Decide27(n, hs, {}, {}))
-T\* a check "replicates" when it hands the replicator a task with at least one candidate node. (With overlapping
-\* rules the code as found keeps calling the replicator with an EMPTY candidate list: a holder remembered from
-\* an earlier rule does not lower the shortage of a later rule - a phantom shortage that copies nothing.)
-Replicates(d) == \E k \in 1..Len(d.tasks) : Len(d.tasks[k].nodes) > 0
-Quiet(hs) == \A n \in hs : LET d == Decide27(n, hs, {}, {}) IN ~Replicates(d) /\ d.del = "none"
-NoTasks(hs) == \A n \in hs : ~Replicates(Decide27(n, hs, {}, {}))
-(\* a check "replicates" when it hands the replicator a task with at least one candidate node. (With overlapping
-\* rules the code as found keeps calling the replicator with an EMPTY candidate list: a holder remembered from
-\* an earlier rule does not lower the shortage of a later rule - a phantom shortage that copies nothing.)
-Replicates(d) == \E k \in 1..Len(d.tasks) : Len(d.tasks[k].nodes) > 0
-Quiet(hs) == \A n \in hs : LET d == Decide27(n, hs, {}, {}) IN ~Replicates(d) /\ d.del = "none"
-NoTasks(hs) == \A n \in hs : ~Replicates(Decide27(n, hs, {}, {}))
-n\* a check "replicates" when it hands the replicator a task with at least one candidate node. (With overlapping
-\* rules the code as found keeps calling the replicator with an EMPTY candidate list: a holder remembered from
-\* an earlier rule does not lower the shortage of a later rule - a phantom shortage that copies nothing.)
-Replicates(d) == \E k \in 1..Len(d.tasks) : Len(d.tasks[k].nodes) > 0
-Quiet(hs) == \A n \in hs : LET d == Decide27(n, hs, {}, {}) IN ~Replicates(d) /\ d.del = "none"
-NoTasks(hs) == \A n \in hs : ~Replicates(Decide27(n, hs, {}, {}))
-,\* a check "replicates" when it hands the replicator a task with at least one candidate node. (With overlapping
-\* rules the code as found keeps calling the replicator with an EMPTY candidate list: a holder remembered from
-\* an earlier rule does not lower the shortage of a later rule - a phantom shortage that copies nothing.)
-Replicates(d) == \E k \in 1..Len(d.tasks) : Len(d.tasks[k].nodes) > 0
-Quiet(hs) == \A n \in hs : LET d == Decide27(n, hs, {}, {}) IN ~Replicates(d) /\ d.del = "none"
-NoTasks(hs) == \A n \in hs : ~Replicates(Decide27(n, hs, {}, {}))
- \* a check "replicates" when it hands the replicator a task with at least one candidate node. (With overlapping
-\* rules the code as found keeps calling the replicator with an EMPTY candidate list: a holder remembered from
-\* an earlier rule does not lower the shortage of a later rule - a phantom shortage that copies nothing.)
-Replicates(d) == \E k \in 1..Len(d.tasks) : Len(d.tasks[k].nodes) > 0
-Quiet(hs) == \A n \in hs : LET d == Decide27(n, hs, {}, {}) IN ~Replicates(d) /\ d.del = "none"
-NoTasks(hs) == \A n \in hs : ~Replicates(Decide27(n, hs, {}, {}))
-n\* a check "replicates" when it hands the replicator a task with at least one candidate node. (With overlapping
-\* rules the code as found keeps calling the replicator with an EMPTY candidate list: a holder remembered from
-\* an earlier rule does not lower the shortage of a later rule - a phantom shortage that copies nothing.)
-Replicates(d) == \E k \in 1..Len(d.tasks) : Len(d.tasks[k].nodes) > 0
-Quiet(hs) == \A n \in hs : LET d == Decide27(n, hs, {}, {}) IN ~Replicates(d) /\ d.del = "none"
-NoTasks(hs) == \A n \in hs : ~Replicates(Decide27(n, hs, {}, {}))
-o\* a check "replicates" when it hands the replicator a task with at least one candidate node. (With overlapping
-\* rules the code as found keeps calling the replicator with an EMPTY candidate list: a holder remembered from
-\* an earlier rule does not lower the shortage of a later rule - a phantom shortage that copies nothing.)
-Replicates(d) == \E k \in 1..Len(d.tasks) : Len(d.tasks[k].nodes) > 0
-Quiet(hs) == \A n \in hs : LET d == Decide27(n, hs, {}, {}) IN ~Replicates(d) /\ d.del = "none"
-NoTasks(hs) == \A n \in hs : ~Replicates(Decide27(n, hs, {}, {}))
-d\* a check "replicates" when it hands the replicator a task with at least one candidate node. (With overlapping
-\* rules the code as found keeps calling the replicator with an EMPTY candidate list: a holder remembered from
-\* an earlier rule does not lower the shortage of a later rule - a phantom shortage that copies nothing.)
-Replicates(d) == \E k \in 1..Len(d.tasks) : Len(d.tasks[k].nodes) > 0
-Quiet(hs) == \A n \in hs : LET d == Decide27(n, hs, {}, {}) IN ~Replicates(d) /\ d.del = "none"
-NoTasks(hs) == \A n \in hs : ~Replicates(Decide27(n, hs, {}, {}))
-e\* a check "replicates" when it hands the replicator a task with at least one candidate node. (With overlapping
-\* rules the code as found keeps calling the replicator with an EMPTY candidate list: a holder remembered from
-\* an earlier rule does not lower the shortage of a later rule - a phantom shortage that copies nothing.)
-Replicates(d) == \E k \in 1..Len(d.tasks) : Len(d.tasks[k].nodes) > 0
-Quiet(hs) == \A n \in hs : LET d == Decide27(n, hs, {}, {}) IN ~Replicates(d) /\ d.del = "none"
-NoTasks(hs) == \A n \in hs : ~Replicates(Decide27(n, hs, {}, {}))
-s\* a check "replicates" when it hands the replicator a task with at least one candidate node. (With overlapping
-\* rules the code as found keeps calling the replicator with an EMPTY candidate list: a holder remembered from
-\* an earlier rule does not lower the shortage of a later rule - a phantom shortage that copies nothing.)
-Replicates(d) == \E k \in 1..Len(d.tasks) : Len(d.tasks[k].nodes) > 0
-Quiet(hs) == \A n \in hs : LET d == Decide27(n, hs, {}, {}) IN ~Replicates(d) /\ d.del = "none"
-NoTasks(hs) == \A n \in hs : ~Replicates(Decide27(n, hs, {}, {}))
-,\* a check "replicates" when it hands the replicator a task with at least one candidate node. (With overlapping
-\* rules the code as found keeps calling the replicator with an EMPTY candidate list: a holder remembered from
-\* an earlier rule does not lower the shortage of a later rule - a phantom shortage that copies nothing.)
-Replicates(d) == \E k \in 1..Len(d.tasks) : Len(d.tasks[k].nodes) > 0
-Quiet(hs) == \A n \in hs : LET d == Decide27(n, hs, {}, {}) IN ~Replicates(d) /\ d.del = "none"
-NoTasks(hs) == \A n \in hs : ~Replicates(Decide27(n, hs, {}, {}))
- \* a check "replicates" when it hands the replicator a task with at least one candidate node. (With overlapping
-\* rules the code as found keeps calling the replicator with an EMPTY candidate list: a holder remembered from
-\* an earlier rule does not lower the shortage of a later rule - a phantom shortage that copies nothing.)
-Replicates(d) == \E k \in 1..Len(d.tasks) : Len(d.tasks[k].nodes) > 0
-Quiet(hs) == \A n \in hs : LET d == Decide27(n, hs, {}, {}) IN ~Replicates(d) /\ d.del = "none"
-NoTasks(hs) == \A n \in hs : ~Replicates(Decide27(n, hs, {}, {}))
-1\* a check "replicates" when it hands the replicator a task with at least one candidate node. (With overlapping
-\* rules the code as found keeps calling the replicator with an EMPTY candidate list: a holder remembered from
-\* an earlier rule does not lower the shortage of a later rule - a phantom shortage that copies nothing.)
-Replicates(d) == \E k \in 1..Len(d.tasks) : Len(d.tasks[k].nodes) > 0
-Quiet(hs) == \A n \in hs : LET d == Decide27(n, hs, {}, {}) IN ~Replicates(d) /\ d.del = "none"
-NoTasks(hs) == \A n \in hs : ~Replicates(Decide27(n, hs, {}, {}))
-,\* a check "replicates" when it hands the replicator a task with at least one candidate node. (With overlapping
-\* rules the code as found keeps calling the replicator with an EMPTY candidate list: a holder remembered from
-\* an earlier rule does not lower the shortage of a later rule - a phantom shortage that copies nothing.)
-Replicates(d) == \E k \in 1..Len(d.tasks) : Len(d.tasks[k].nodes) > 0
-Quiet(hs) == \A n \in hs : LET d == Decide27(n, hs, {}, {}) IN ~Replicates(d) /\ d.del = "none"
-NoTasks(hs) == \A n \in hs : ~Replicates(Decide27(n, hs, {}, {}))
- \* a check "replicates" when it hands the replicator a task with at least one candidate node. (With overlapping
-\* rules the code as found keeps calling the replicator with an EMPTY candidate list: a holder remembered from
-\* an earlier rule does not lower the shortage of a later rule - a phantom shortage that copies nothing.)
-Replicates(d) == \E k \in 1..Len(d.tasks) : Len(d.tasks[k].nodes) > 0
-Quiet(hs) == \A n \in hs : LET d == Decide27(n, hs, {}, {}) IN ~Replicates(d) /\ d.del = "none"
-NoTasks(hs) == \A n \in hs : ~Replicates(Decide27(n, hs, {}, {}))
-q\* a check "replicates" when it hands the replicator a task with at least one candidate node. (With overlapping
-\* rules the code as found keeps calling the replicator with an EMPTY candidate list: a holder remembered from
-\* an earlier rule does not lower the shortage of a later rule - a phantom shortage that copies nothing.)
-Replicates(d) == \E k \in 1..Len(d.tasks) : Len(d.tasks[k].nodes) > 0
-Quiet(hs) == \A n \in hs : LET d == Decide27(n, hs, {}, {}) IN ~Replicates(d) /\ d.del = "none"
-NoTasks(hs) == \A n \in hs : ~Replicates(Decide27(n, hs, {}, {}))
-,\* a check "replicates" when it hands the replicator a task with at least one candidate node. (With overlapping
-\* rules the code as found keeps calling the replicator with an EMPTY candidate list: a holder remembered from
-\* an earlier rule does not lower the shortage of a later rule - a phantom shortage that copies nothing.)
-Replicates(d) == \E k \in 1..Len(d.tasks) : Len(d.tasks[k].nodes) > 0
-Quiet(hs) == \A n \in hs : LET d == Decide27(n, hs, {}, {}) IN ~Replicates(d) /\ d.del = "none"
-NoTasks(hs) == \A n \in hs : ~Replicates(Decide27(n, hs, {}, {}))
- \* a check "replicates" when it hands the replicator a task with at least one candidate node. (With overlapping
-\* rules the code as found keeps calling the replicator with an EMPTY candidate list: a holder remembered from
-\* an earlier rule does not lower the shortage of a later rule - a phantom shortage that copies nothing.)
-Replicates(d) == \E k \in 1..Len(d.tasks) : Len(d.tasks[k].nodes) > 0
-Quiet(hs) == \A n \in hs : LET d == Decide27(n, hs, {}, {}) IN ~Replicates(d) /\ d.del = "none"
-NoTasks(hs) == \A n \in hs : ~Replicates(Decide27(n, hs, {}, {}))
-d\* a check "replicates" when it hands the replicator a task with at least one candidate node. (With overlapping
-\* rules the code as found keeps calling the replicator with an EMPTY candidate list: a holder remembered from
-\* an earlier rule does not lower the shortage of a later rule - a phantom shortage that copies nothing.)
-Replicates(d) == \E k \in 1..Len(d.tasks) : Len(d.tasks[k].nodes) > 0
-Quiet(hs) == \A n \in hs : LET d == Decide27(n, hs, {}, {}) IN ~Replicates(d) /\ d.del = "none"
-NoTasks(hs) == \A n \in hs : ~Replicates(Decide27(n, hs, {}, {}))
-o\* a check "replicates" when it hands the replicator a task with at least one candidate node. (With overlapping
-\* rules the code as found keeps calling the replicator with an EMPTY candidate list: a holder remembered from
-\* an earlier rule does not lower the shortage of a later rule - a phantom shortage that copies nothing.)
-Replicates(d) == \E k \in 1..Len(d.tasks) : Len(d.tasks[k].nodes) > 0
-Quiet(hs) == \A n \in hs : LET d == Decide27(n, hs, {}, {}) IN ~Replicates(d) /\ d.del = "none"
-NoTasks(hs) == \A n \in hs : ~Replicates(Decide27(n, hs, {}, {}))
-w\* a check "replicates" when it hands the replicator a task with at least one candidate node. (With overlapping
-\* rules the code as found keeps calling the replicator with an EMPTY candidate list: a holder remembered from
-\* an earlier rule does not lower the shortage of a later rule - a phantom shortage that copies nothing.)
-Replicates(d) == \E k \in 1..Len(d.tasks) : Len(d.tasks[k].nodes) > 0
-Quiet(hs) == \A n \in hs : LET d == Decide27(n, hs, {}, {}) IN ~Replicates(d) /\ d.del = "none"
-NoTasks(hs) == \A n \in hs : ~Replicates(Decide27(n, hs, {}, {}))
-n\* a check "replicates" when it hands the replicator a task with at least one candidate node. (With overlapping
-\* rules the code as found keeps calling the replicator with an EMPTY candidate list: a holder remembered from
-\* an earlier rule does not lower the shortage of a later rule - a phantom shortage that copies nothing.)
-Replicates(d) == \E k \in 1..Len(d.tasks) : Len(d.tasks[k].nodes) > 0
-Quiet(hs) == \A n \in hs : LET d == Decide27(n, hs, {}, {}) IN ~Replicates(d) /\ d.del = "none"
-NoTasks(hs) == \A n \in hs : ~Replicates(Decide27(n, hs, {}, {}))
- \* a check "replicates" when it hands the replicator a task with at least one candidate node. (With overlapping
-\* rules the code as found keeps calling the replicator with an EMPTY candidate list: a holder remembered from
-\* an earlier rule does not lower the shortage of a later rule - a phantom shortage that copies nothing.)
-Replicates(d) == \E k \in 1..Len(d.tasks) : Len(d.tasks[k].nodes) > 0
-Quiet(hs) == \A n \in hs : LET d == Decide27(n, hs, {}, {}) IN ~Replicates(d) /\ d.del = "none"
-NoTasks(hs) == \A n \in hs : ~Replicates(Decide27(n, hs, {}, {}))
-\\* a check "replicates" when it hands the replicator a task with at least one candidate node. (With overlapping
-\* rules the code as found keeps calling the replicator with an EMPTY candidate list: a holder remembered from
-\* an earlier rule does not lower the shortage of a later rule - a phantom shortage that copies nothing.)
-Replicates(d) == \E k \in 1..Len(d.tasks) : Len(d.tasks[k].nodes) > 0
-Quiet(hs) == \A n \in hs : LET d == Decide27(n, hs, {}, {}) IN ~Replicates(d) /\ d.del = "none"
-NoTasks(hs) == \A n \in hs : ~Replicates(Decide27(n, hs, {}, {}))
-c\* a check "replicates" when it hands the replicator a task with at least one candidate node. (With overlapping
-\* rules the code as found keeps calling the replicator with an EMPTY candidate list: a holder remembered from
-\* an earlier rule does not lower the shortage of a later rule - a phantom shortage that copies nothing.)
-Replicates(d) == \E k \in 1..Len(d.tasks) : Len(d.tasks[k].nodes) > 0
-Quiet(hs) == \A n \in hs : LET d == Decide27(n, hs, {}, {}) IN ~Replicates(d) /\ d.del = "none"
-NoTasks(hs) == \A n \in hs : ~Replicates(Decide27(n, hs, {}, {}))
-u\* a check "replicates" when it hands the replicator a task with at least one candidate node. (With overlapping
-\* rules the code as found keeps calling the replicator with an EMPTY candidate list: a holder remembered from
-\* an earlier rule does not lower the shortage of a later rule - a phantom shortage that copies nothing.)
-Replicates(d) == \E k \in 1..Len(d.tasks) : Len(d.tasks[k].nodes) > 0
-Quiet(hs) == \A n \in hs : LET d == Decide27(n, hs, {}, {}) IN ~Replicates(d) /\ d.del = "none"
-NoTasks(hs) == \A n \in hs : ~Replicates(Decide27(n, hs, {}, {}))
-p\* a check "replicates" when it hands the replicator a task with at least one candidate node. (With overlapping
-\* rules the code as found keeps calling the replicator with an EMPTY candidate list: a holder remembered from
-\* an earlier rule does not lower the shortage of a later rule - a phantom shortage that copies nothing.)
-Replicates(d) == \E k \in 1..Len(d.tasks) : Len(d.tasks[k].nodes) > 0
-Quiet(hs) == \A n \in hs : LET d == Decide27(n, hs, {}, {}) IN ~Replicates(d) /\ d.del = "none"
-NoTasks(hs) == \A n \in hs : ~Replicates(Decide27(n, hs, {}, {}))
- \* a check "replicates" when it hands the replicator a task with at least one candidate node. (With overlapping
-\* rules the code as found keeps calling the replicator with an EMPTY candidate list: a holder remembered from
-\* an earlier rule does not lower the shortage of a later rule - a phantom shortage that copies nothing.)
-Replicates(d) == \E k \in 1..Len(d.tasks) : Len(d.tasks[k].nodes) > 0
-Quiet(hs) == \A n \in hs : LET d == Decide27(n, hs, {}, {}) IN ~Replicates(d) /\ d.del = "none"
-NoTasks(hs) == \A n \in hs : ~Replicates(Decide27(n, hs, {}, {}))
-r\* a check "replicates" when it hands the replicator a task with at least one candidate node. (With overlapping
-\* rules the code as found keeps calling the replicator with an EMPTY candidate list: a holder remembered from
-\* an earlier rule does not lower the shortage of a later rule - a phantom shortage that copies nothing.)
-Replicates(d) == \E k \in 1..Len(d.tasks) : Len(d.tasks[k].nodes) > 0
-Quiet(hs) == \A n \in hs : LET d == Decide27(n, hs, {}, {}) IN ~Replicates(d) /\ d.del = "none"
-NoTasks(hs) == \A n \in hs : ~Replicates(Decide27(n, hs, {}, {}))
-e\* a check "replicates" when it hands the replicator a task with at least one candidate node. (With overlapping
-\* rules the code as found keeps calling the replicator with an EMPTY candidate list: a holder remembered from
-\* an earlier rule does not lower the shortage of a later rule - a phantom shortage that copies nothing.)
-Replicates(d) == \E k \in 1..Len(d.tasks) : Len(d.tasks[k].nodes) > 0
-Quiet(hs) == \A n \in hs : LET d == Decide27(n, hs, {}, {}) IN ~Replicates(d) /\ d.del = "none"
-NoTasks(hs) == \A n \in hs : ~Replicates(Decide27(n, hs, {}, {}))
-f\* a check "replicates" when it hands the replicator a task with at least one candidate node. (With overlapping
-\* rules the code as found keeps calling the replicator with an EMPTY candidate list: a holder remembered from
-\* an earlier rule does not lower the shortage of a later rule - a phantom shortage that copies nothing.)
-Replicates(d) == \E k \in 1..Len(d.tasks) : Len(d.tasks[k].nodes) > 0
-Quiet(hs) == \A n \in hs : LET d == Decide27(n, hs, {}, {}) IN ~Replicates(d) /\ d.del = "none"
-NoTasks(hs) == \A n \in hs : ~Replicates(Decide27(n, hs, {}, {}))
-u\* a check "replicates" when it hands the replicator a task with at least one candidate node. (With overlapping
-\* rules the code as found keeps calling the replicator with an EMPTY candidate list: a holder remembered from
-\* an earlier rule does not lower the shortage of a later rule - a phantom shortage that copies nothing.)
-Replicates(d) == \E k \in 1..Len(d.tasks) : Len(d.tasks[k].nodes) > 0
-Quiet(hs) == \A n \in hs : LET d == Decide27(n, hs, {}, {}) IN ~Replicates(d) /\ d.del = "none"
-NoTasks(hs) == \A n \in hs : ~Replicates(Decide27(n, hs, {}, {}))
-s\* a check "replicates" when it hands the replicator a task with at least one candidate node. (With overlapping
-\* rules the code as found keeps calling the replicator with an EMPTY candidate list: a holder remembered from
-\* an earlier rule does not lower the shortage of a later rule - a phantom shortage that copies nothing.)
-Replicates(d) == \E k \in 1..Len(d.tasks) : Len(d.tasks[k].nodes) > 0
-Quiet(hs) == \A n \in hs : LET d == Decide27(n, hs, {}, {}) IN ~Replicates(d) /\ d.del = "none"
-NoTasks(hs) == \A n \in hs : ~Replicates(Decide27(n, hs, {}, {}))
-e\* a check "replicates" when it hands the replicator a task with at least one candidate node. (With overlapping
-\* rules the code as found keeps calling the replicator with an EMPTY candidate list: a holder remembered from
-\* an earlier rule does not lower the shortage of a later rule - a phantom shortage that copies nothing.)
-Replicates(d) == \E k \in 1..Len(d.tasks) : Len(d.tasks[k].nodes) > 0
-Quiet(hs) == \A n \in hs : LET d == Decide27(n, hs, {}, {}) IN ~Replicates(d) /\ d.del = "none"
-NoTasks(hs) == \A n \in hs : ~Replicates(Decide27(n, hs, {}, {}))
-,\* a check "replicates" when it hands the replicator a task with at least one candidate node. (With overlapping
-\* rules the code as found keeps calling the replicator with an EMPTY candidate list: a holder remembered from
-\* an earlier rule does not lower the shortage of a later rule - a phantom shortage that copies nothing.)
-Replicates(d) == \E k \in 1..Len(d.tasks) : Len(d.tasks[k].nodes) > 0
-Quiet(hs) == \A n \in hs : LET d == Decide27(n, hs, {}, {}) IN ~Replicates(d) /\ d.del = "none"
-NoTasks(hs) == \A n \in hs : ~Replicates(Decide27(n, hs, {}, {}))
- \* a check "replicates" when it hands the replicator a task with at least one candidate node. (With overlapping
-\* rules the code as found keeps calling the replicator with an EMPTY candidate list: a holder remembered from
-\* an earlier rule does not lower the shortage of a later rule - a phantom shortage that copies nothing.)
-Replicates(d) == \E k \in 1..Len(d.tasks) : Len(d.tasks[k].nodes) > 0
-Quiet(hs) == \A n \in hs : LET d == Decide27(n, hs, {}, {}) IN ~Replicates(d) /\ d.del = "none"
-NoTasks(hs) == \A n \in hs : ~Replicates(Decide27(n, hs, {}, {}))
-<\* a check "replicates" when it hands the replicator a task with at least one candidate node. (With overlapping
-\* rules the code as found keeps calling the replicator with an EMPTY candidate list: a holder remembered from
-\* an earlier rule does not lower the shortage of a later rule - a phantom shortage that copies nothing.)
-Replicates(d) == \E k \in 1..Len(d.tasks) : Len(d.tasks[k].nodes) > 0
-Quiet(hs) == \A n \in hs : LET d == Decide27(n, hs, {}, {}) IN ~Replicates(d) /\ d.del = "none"
-NoTasks(hs) == \A n \in hs : ~Replicates(Decide27(n, hs, {}, {}))
-<\* a check "replicates" when it hands the replicator a task with at least one candidate node. (With overlapping
-\* rules the code as found keeps calling the replicator with an EMPTY candidate list: a holder remembered from
-\* an earlier rule does not lower the shortage of a later rule - a phantom shortage that copies nothing.)
-Replicates(d) == \E k \in 1..Len(d.tasks) : Len(d.tasks[k].nodes) > 0
-Quiet(hs) == \A n \in hs : LET d == Decide27(n, hs, {}, {}) IN ~Replicates(d) /\ d.del = "none"
-NoTasks(hs) == \A n \in hs : ~Replicates(Decide27(n, hs, {}, {}))
->\* a check "replicates" when it hands the replicator a task with at least one candidate node. (With overlapping
-\* rules the code as found keeps calling the replicator with an EMPTY candidate list: a holder remembered from
-\* an earlier rule does not lower the shortage of a later rule - a phantom shortage that copies nothing.)
-Replicates(d) == \E k \in 1..Len(d.tasks) : Len(d.tasks[k].nodes) > 0
-Quiet(hs) == \A n \in hs : LET d == Decide27(n, hs, {}, {}) IN ~Replicates(d) /\ d.del = "none"
-NoTasks(hs) == \A n \in hs : ~Replicates(Decide27(n, hs, {}, {}))
->\* a check "replicates" when it hands the replicator a task with at least one candidate node. (With overlapping
-\* rules the code as found keeps calling the replicator with an EMPTY candidate list: a holder remembered from
-\* an earlier rule does not lower the shortage of a later rule - a phantom shortage that copies nothing.)
-Replicates(d) == \E k \in 1..Len(d.tasks) : Len(d.tasks[k].nodes) > 0
-Quiet(hs) == \A n \in hs : LET d == Decide27(n, hs, {}, {}) IN ~Replicates(d) /\ d.del = "none"
-NoTasks(hs) == \A n \in hs : ~Replicates(Decide27(n, hs, {}, {}))
-)\* a check "replicates" when it hands the replicator a task with at least one candidate node. (With overlapping
-\* rules the code as found keeps calling the replicator with an EMPTY candidate list: a holder remembered from
-\* an earlier rule does not lower the shortage of a later rule - a phantom shortage that copies nothing.)
-Replicates(d) == \E k \in 1..Len(d.tasks) : Len(d.tasks[k].nodes) > 0
-Quiet(hs) == \A n \in hs : LET d == Decide27(n, hs, {}, {}) IN ~Replicates(d) /\ d.del = "none"
-NoTasks(hs) == \A n \in hs : ~Replicates(Decide27(n, hs, {}, {}))
- \* a check "replicates" when it hands the replicator a task with at least one candidate node. (With overlapping
-\* rules the code as found keeps calling the replicator with an EMPTY candidate list: a holder remembered from
-\* an earlier rule does not lower the shortage of a later rule - a phantom shortage that copies nothing.)
-Replicates(d) == \E k \in 1..Len(d.tasks) : Len(d.tasks[k].nodes) > 0
-Quiet(hs) == \A n \in hs : LET d == Decide27(n, hs, {}, {}) IN ~Replicates(d) /\ d.del = "none"
-NoTasks(hs) == \A n \in hs : ~Replicates(Decide27(n, hs, {}, {}))
-I\* a check "replicates" when it hands the replicator a task with at least one candidate node. (With overlapping
-\* rules the code as found keeps calling the replicator with an EMPTY candidate list: a holder remembered from
-\* an earlier rule does not lower the shortage of a later rule - a phantom shortage that copies nothing.)
-Replicates(d) == \E k \in 1..Len(d.tasks) : Len(d.tasks[k].nodes) > 0
-Quiet(hs) == \A n \in hs : LET d == Decide27(n, hs, {}, {}) IN ~Replicates(d) /\ d.del = "none"
-NoTasks(hs) == \A n \in hs : ~Replicates(Decide27(n, hs, {}, {}))
-N\* a check "replicates" when it hands the replicator a task with at least one candidate node. (With overlapping
-\* rules the code as found keeps calling the replicator with an EMPTY candidate list: a holder remembered from
-\* an earlier rule does not lower the shortage of a later rule - a phantom shortage that copies nothing.)
-Replicates(d) == \E k \in 1..Len(d.tasks) : Len(d.tasks[k].nodes) > 0
-Quiet(hs) == \A n \in hs : LET d == Decide27(n, hs, {}, {}) IN ~Replicates(d) /\ d.del = "none"
-NoTasks(hs) == \A n \in hs : ~Replicates(Decide27(n, hs, {}, {}))
-
-\* a check "replicates" when it hands the replicator a task with at least one candidate node. (With overlapping
-\* rules the code as found keeps calling the replicator with an EMPTY candidate list: a holder remembered from
-\* an earlier rule does not lower the shortage of a later rule - a phantom shortage that copies nothing.)
-Replicates(d) == \E k \in 1..Len(d.tasks) : Len(d.tasks[k].nodes) > 0
-Quiet(hs) == \A n \in hs : LET d == Decide27(n, hs, {}, {}) IN ~Replicates(d) /\ d.del = "none"
-NoTasks(hs) == \A n \in hs : ~Replicates(Decide27(n, hs, {}, {}))
- \* a check "replicates" when it hands the replicator a task with at least one candidate node. (With overlapping
-\* rules the code as found keeps calling the replicator with an EMPTY candidate list: a holder remembered from
-\* an earlier rule does not lower the shortage of a later rule - a phantom shortage that copies nothing.)
-Replicates(d) == \E k \in 1..Len(d.tasks) : Len(d.tasks[k].nodes) > 0
-Quiet(hs) == \A n \in hs : LET d == Decide27(n, hs, {}, {}) IN ~Replicates(d) /\ d.del = "none"
-NoTasks(hs) == \A n \in hs : ~Replicates(Decide27(n, hs, {}, {}))
- \* a check "replicates" when it hands the replicator a task with at least one candidate node. (With overlapping
-\* rules the code as found keeps calling the replicator with an EMPTY candidate list: a holder remembered from
-\* an earlier rule does not lower the shortage of a later rule - a phantom shortage that copies nothing.)
-Replicates(d) == \E k \in 1..Len(d.tasks) : Len(d.tasks[k].nodes) > 0
-Quiet(hs) == \A n \in hs : LET d == Decide27(n, hs, {}, {}) IN ~Replicates(d) /\ d.del = "none"
-NoTasks(hs) == \A n \in hs : ~Replicates(Decide27(n, hs, {}, {}))
- \* a check "replicates" when it hands the replicator a task with at least one candidate node. (With overlapping
-\* rules the code as found keeps calling the replicator with an EMPTY candidate list: a holder remembered from
-\* an earlier rule does not lower the shortage of a later rule - a phantom shortage that copies nothing.)
-Replicates(d) == \E k \in 1..Len(d.tasks) : Len(d.tasks[k].nodes) > 0
-Quiet(hs) == \A n \in hs : LET d == Decide27(n, hs, {}, {}) IN ~Replicates(d) /\ d.del = "none"
-NoTasks(hs) == \A n \in hs : ~Replicates(Decide27(n, hs, {}, {}))
- \* a check "replicates" when it hands the replicator a task with at least one candidate node. (With overlapping
-\* rules the code as found keeps calling the replicator with an EMPTY candidate list: a holder remembered from
-\* an earlier rule does not lower the shortage of a later rule - a phantom shortage that copies nothing.)
-Replicates(d) == \E k \in 1..Len(d.tasks) : Len(d.tasks[k].nodes) > 0
-Quiet(hs) == \A n \in hs : LET d == Decide27(n, hs, {}, {}) IN ~Replicates(d) /\ d.del = "none"
-NoTasks(hs) == \A n \in hs : ~Replicates(Decide27(n, hs, {}, {}))
- \* a check "replicates" when it hands the replicator a task with at least one candidate node. (With overlapping
-\* rules the code as found keeps calling the replicator with an EMPTY candidate list: a holder remembered from
-\* an earlier rule does not lower the shortage of a later rule - a phantom shortage that copies nothing.)
-Replicates(d) == \E k \in 1..Len(d.tasks) : Len(d.tasks[k].nodes) > 0
-Quiet(hs) == \A n \in hs : LET d == Decide27(n, hs, {}, {}) IN ~Replicates(d) /\ d.del = "none"
-NoTasks(hs) == \A n \in hs : ~Replicates(Decide27(n, hs, {}, {}))
- \* a check "replicates" when it hands the replicator a task with at least one candidate node. (With overlapping
-\* rules the code as found keeps calling the replicator with an EMPTY candidate list: a holder remembered from
-\* an earlier rule does not lower the shortage of a later rule - a phantom shortage that copies nothing.)
-Replicates(d) == \E k \in 1..Len(d.tasks) : Len(d.tasks[k].nodes) > 0
-Quiet(hs) == \A n \in hs : LET d == Decide27(n, hs, {}, {}) IN ~Replicates(d) /\ d.del = "none"
-NoTasks(hs) == \A n \in hs : ~Replicates(Decide27(n, hs, {}, {}))
- \* a check "replicates" when it hands the replicator a task with at least one candidate node. (With overlapping
-\* rules the code as found keeps calling the replicator with an EMPTY candidate list: a holder remembered from
-\* an earlier rule does not lower the shortage of a later rule - a phantom shortage that copies nothing.)
-Replicates(d) == \E k \in 1..Len(d.tasks) : Len(d.tasks[k].nodes) > 0
-Quiet(hs) == \A n \in hs : LET d == Decide27(n, hs, {}, {}) IN ~Replicates(d) /\ d.del = "none"
-NoTasks(hs) == \A n \in hs : ~Replicates(Decide27(n, hs, {}, {}))
-/\* a check "replicates" when it hands the replicator a task with at least one candidate node. (With overlapping
-\* rules the code as found keeps calling the replicator with an EMPTY candidate list: a holder remembered from
-\* an earlier rule does not lower the shortage of a later rule - a phantom shortage that copies nothing.)
-Replicates(d) == \E k \in 1..Len(d.tasks) : Len(d.tasks[k].nodes) > 0
-Quiet(hs) == \A n \in hs : LET d == Decide27(n, hs, {}, {}) IN ~Replicates(d) /\ d.del = "none"
-NoTasks(hs) == \A n \in hs : ~Replicates(Decide27(n, hs, {}, {}))
-\\* a check "replicates" when it hands the replicator a task with at least one candidate node. (With overlapping
-\* rules the code as found keeps calling the replicator with an EMPTY candidate list: a holder remembered from
-\* an earlier rule does not lower the shortage of a later rule - a phantom shortage that copies nothing.)
-Replicates(d) == \E k \in 1..Len(d.tasks) : Len(d.tasks[k].nodes) > 0
-Quiet(hs) == \A n \in hs : LET d == Decide27(n, hs, {}, {}) IN ~Replicates(d) /\ d.del = "none"
-NoTasks(hs) == \A n \in hs : ~Replicates(Decide27(n, hs, {}, {}))
- \* a check "replicates" when it hands the replicator a task with at least one candidate node. (With overlapping
-\* rules the code as found keeps calling the replicator with an EMPTY candidate list: a holder remembered from
-\* an earlier rule does not lower the shortage of a later rule - a phantom shortage that copies nothing.)
-Replicates(d) == \E k \in 1..Len(d.tasks) : Len(d.tasks[k].nodes) > 0
-Quiet(hs) == \A n \in hs : LET d == Decide27(n, hs, {}, {}) IN ~Replicates(d) /\ d.del = "none"
-NoTasks(hs) == \A n \in hs : ~Replicates(Decide27(n, hs, {}, {}))
-l\* a check "replicates" when it hands the replicator a task with at least one candidate node. (With overlapping
-\* rules the code as found keeps calling the replicator with an EMPTY candidate list: a holder remembered from
-\* an earlier rule does not lower the shortage of a later rule - a phantom shortage that copies nothing.)
-Replicates(d) == \E k \in 1..Len(d.tasks) : Len(d.tasks[k].nodes) > 0
-Quiet(hs) == \A n \in hs : LET d == Decide27(n, hs, {}, {}) IN ~Replicates(d) /\ d.del = "none"
-NoTasks(hs) == \A n \in hs : ~Replicates(Decide27(n, hs, {}, {}))
-a\* a check "replicates" when it hands the replicator a task with at least one candidate node. (With overlapping
-\* rules the code as found keeps calling the replicator with an EMPTY candidate list: a holder remembered from
-\* an earlier rule does not lower the shortage of a later rule - a phantom shortage that copies nothing.)
-Replicates(d) == \E k \in 1..Len(d.tasks) : Len(d.tasks[k].nodes) > 0
-Quiet(hs) == \A n \in hs : LET d == Decide27(n, hs, {}, {}) IN ~Replicates(d) /\ d.del = "none"
-NoTasks(hs) == \A n \in hs : ~Replicates(Decide27(n, hs, {}, {}))
-s\* a check "replicates" when it hands the replicator a task with at least one candidate node. (With overlapping
-\* rules the code as found keeps calling the replicator with an EMPTY candidate list: a holder remembered from
-\* an earlier rule does not lower the shortage of a later rule - a phantom shortage that copies nothing.)
-Replicates(d) == \E k \in 1..Len(d.tasks) : Len(d.tasks[k].nodes) > 0
-Quiet(hs) == \A n \in hs : LET d == Decide27(n, hs, {}, {}) IN ~Replicates(d) /\ d.del = "none"
-NoTasks(hs) == \A n \in hs : ~Replicates(Decide27(n, hs, {}, {}))
-t\* a check "replicates" when it hands the replicator a task with at least one candidate node. (With overlapping
-\* rules the code as found keeps calling the replicator with an EMPTY candidate list: a holder remembered from
-\* an earlier rule does not lower the shortage of a later rule - a phantom shortage that copies nothing.)
-Replicates(d) == \E k \in 1..Len(d.tasks) : Len(d.tasks[k].nodes) > 0
-Quiet(hs) == \A n \in hs : LET d == Decide27(n, hs, {}, {}) IN ~Replicates(d) /\ d.del = "none"
-NoTasks(hs) == \A n \in hs : ~Replicates(Decide27(n, hs, {}, {}))
-'\* a check "replicates" when it hands the replicator a task with at least one candidate node. (With overlapping
-\* rules the code as found keeps calling the replicator with an EMPTY candidate list: a holder remembered from
-\* an earlier rule does not lower the shortage of a later rule - a phantom shortage that copies nothing.)
-Replicates(d) == \E k \in 1..Len(d.tasks) : Len(d.tasks[k].nodes) > 0
-Quiet(hs) == \A n \in hs : LET d == Decide27(n, hs, {}, {}) IN ~Replicates(d) /\ d.del = "none"
-NoTasks(hs) == \A n \in hs : ~Replicates(Decide27(n, hs, {}, {}))
- \* a check "replicates" when it hands the replicator a task with at least one candidate node. (With overlapping
-\* rules the code as found keeps calling the replicator with an EMPTY candidate list: a holder remembered from
-\* an earlier rule does not lower the shortage of a later rule - a phantom shortage that copies nothing.)
-Replicates(d) == \E k \in 1..Len(d.tasks) : Len(d.tasks[k].nodes) > 0
-Quiet(hs) == \A n \in hs : LET d == Decide27(n, hs, {}, {}) IN ~Replicates(d) /\ d.del = "none"
-NoTasks(hs) == \A n \in hs : ~Replicates(Decide27(n, hs, {}, {}))
-=\* a check "replicates" when it hands the replicator a task with at least one candidate node. (With overlapping
-\* rules the code as found keeps calling the replicator with an EMPTY candidate list: a holder remembered from
-\* an earlier rule does not lower the shortage of a later rule - a phantom shortage that copies nothing.)
-Replicates(d) == \E k \in 1..Len(d.tasks) : Len(d.tasks[k].nodes) > 0
-Quiet(hs) == \A n \in hs : LET d == Decide27(n, hs, {}, {}) IN ~Replicates(d) /\ d.del = "none"
-NoTasks(hs) == \A n \in hs : ~Replicates(Decide27(n, hs, {}, {}))
- \* a check "replicates" when it hands the replicator a task with at least one candidate node. (With overlapping
-\* rules the code as found keeps calling the replicator with an EMPTY candidate list: a holder remembered from
-\* an earlier rule does not lower the shortage of a later rule - a phantom shortage that copies nothing.)
-Replicates(d) == \E k \in 1..Len(d.tasks) : Len(d.tasks[k].nodes) > 0
-Quiet(hs) == \A n \in hs : LET d == Decide27(n, hs, {}, {}) IN ~Replicates(d) /\ d.del = "none"
-NoTasks(hs) == \A n \in hs : ~Replicates(Decide27(n, hs, {}, {}))
-[\* a check "replicates" when it hands the replicator a task with at least one candidate node. (With overlapping
-\* rules the code as found keeps calling the replicator with an EMPTY candidate list: a holder remembered from
-\* an earlier rule does not lower the shortage of a later rule - a phantom shortage that copies nothing.)
-Replicates(d) == \E k \in 1..Len(d.tasks) : Len(d.tasks[k].nodes) > 0
-Quiet(hs) == \A n \in hs : LET d == Decide27(n, hs, {}, {}) IN ~Replicates(d) /\ d.del = "none"
-NoTasks(hs) == \A n \in hs : ~Replicates(Decide27(n, hs, {}, {}))
-n\* a check "replicates" when it hands the replicator a task with at least one candidate node. (With overlapping
-\* rules the code as found keeps calling the replicator with an EMPTY candidate list: a holder remembered from
-\* an earlier rule does not lower the shortage of a later rule - a phantom shortage that copies nothing.)
-Replicates(d) == \E k \in 1..Len(d.tasks) : Len(d.tasks[k].nodes) > 0
-Quiet(hs) == \A n \in hs : LET d == Decide27(n, hs, {}, {}) IN ~Replicates(d) /\ d.del = "none"
-NoTasks(hs) == \A n \in hs : ~Replicates(Decide27(n, hs, {}, {}))
-o\* a check "replicates" when it hands the replicator a task with at least one candidate node. (With overlapping
-\* rules the code as found keeps calling the replicator with an EMPTY candidate list: a holder remembered from
-\* an earlier rule does not lower the shortage of a later rule - a phantom shortage that copies nothing.)
-Replicates(d) == \E k \in 1..Len(d.tasks) : Len(d.tasks[k].nodes) > 0
-Quiet(hs) == \A n \in hs : LET d == Decide27(n, hs, {}, {}) IN ~Replicates(d) /\ d.del = "none"
-NoTasks(hs) == \A n \in hs : ~Replicates(Decide27(n, hs, {}, {}))
-d\* a check "replicates" when it hands the replicator a task with at least one candidate node. (With overlapping
-\* rules the code as found keeps calling the replicator with an EMPTY candidate list: a holder remembered from
-\* an earlier rule does not lower the shortage of a later rule - a phantom shortage that copies nothing.)
-Replicates(d) == \E k \in 1..Len(d.tasks) : Len(d.tasks[k].nodes) > 0
-Quiet(hs) == \A n \in hs : LET d == Decide27(n, hs, {}, {}) IN ~Replicates(d) /\ d.del = "none"
-NoTasks(hs) == \A n \in hs : ~Replicates(Decide27(n, hs, {}, {}))
-e\* a check "replicates" when it hands the replicator a task with at least one candidate node. (With overlapping
-\* rules the code as found keeps calling the replicator with an EMPTY candidate list: a holder remembered from
-\* an earlier rule does not lower the shortage of a later rule - a phantom shortage that copies nothing.)
-Replicates(d) == \E k \in 1..Len(d.tasks) : Len(d.tasks[k].nodes) > 0
-Quiet(hs) == \A n \in hs : LET d == Decide27(n, hs, {}, {}) IN ~Replicates(d) /\ d.del = "none"
-NoTasks(hs) == \A n \in hs : ~Replicates(Decide27(n, hs, {}, {}))
- \* a check "replicates" when it hands the replicator a task with at least one candidate node. (With overlapping
-\* rules the code as found keeps calling the replicator with an EMPTY candidate list: a holder remembered from
-\* an earlier rule does not lower the shortage of a later rule - a phantom shortage that copies nothing.)
-Replicates(d) == \E k \in 1..Len(d.tasks) : Len(d.tasks[k].nodes) > 0
-Quiet(hs) == \A n \in hs : LET d == Decide27(n, hs, {}, {}) IN ~Replicates(d) /\ d.del = "none"
-NoTasks(hs) == \A n \in hs : ~Replicates(Decide27(n, hs, {}, {}))
-|\* a check "replicates" when it hands the replicator a task with at least one candidate node. (With overlapping
-\* rules the code as found keeps calling the replicator with an EMPTY candidate list: a holder remembered from
-\* an earlier rule does not lower the shortage of a later rule - a phantom shortage that copies nothing.)
-Replicates(d) == \E k \in 1..Len(d.tasks) : Len(d.tasks[k].nodes) > 0
-Quiet(hs) == \A n \in hs : LET d == Decide27(n, hs, {}, {}) IN ~Replicates(d) /\ d.del = "none"
-NoTasks(hs) == \A n \in hs : ~Replicates(Decide27(n, hs, {}, {}))
--\* a check "replicates" when it hands the replicator a task with at least one candidate node. (With overlapping
-\* rules the code as found keeps calling the replicator with an EMPTY candidate list: a holder remembered from
-\* an earlier rule does not lower the shortage of a later rule - a phantom shortage that copies nothing.)
-Replicates(d) == \E k \in 1..Len(d.tasks) : Len(d.tasks[k].nodes) > 0
-Quiet(hs) == \A n \in hs : LET d == Decide27(n, hs, {}, {}) IN ~Replicates(d) /\ d.del = "none"
-NoTasks(hs) == \A n \in hs : ~Replicates(Decide27(n, hs, {}, {}))
->\* a check "replicates" when it hands the replicator a task with at least one candidate node. (With overlapping
-\* rules the code as found keeps calling the replicator with an EMPTY candidate list: a holder remembered from
-\* an earlier rule does not lower the shortage of a later rule - a phantom shortage that copies nothing.)
-Replicates(d) == \E k \in 1..Len(d.tasks) : Len(d.tasks[k].nodes) > 0
-Quiet(hs) == \A n \in hs : LET d == Decide27(n, hs, {}, {}) IN ~Replicates(d) /\ d.del = "none"
-NoTasks(hs) == \A n \in hs : ~Replicates(Decide27(n, hs, {}, {}))
- \* a check "replicates" when it hands the replicator a task with at least one candidate node. (With overlapping
-\* rules the code as found keeps calling the replicator with an EMPTY candidate list: a holder remembered from
-\* an earlier rule does not lower the shortage of a later rule - a phantom shortage that copies nothing.)
-Replicates(d) == \E k \in 1..Len(d.tasks) : Len(d.tasks[k].nodes) > 0
-Quiet(hs) == \A n \in hs : LET d == Decide27(n, hs, {}, {}) IN ~Replicates(d) /\ d.del = "none"
-NoTasks(hs) == \A n \in hs : ~Replicates(Decide27(n, hs, {}, {}))
-n\* a check "replicates" when it hands the replicator a task with at least one candidate node. (With overlapping
-\* rules the code as found keeps calling the replicator with an EMPTY candidate list: a holder remembered from
-\* an earlier rule does not lower the shortage of a later rule - a phantom shortage that copies nothing.)
-Replicates(d) == \E k \in 1..Len(d.tasks) : Len(d.tasks[k].nodes) > 0
-Quiet(hs) == \A n \in hs : LET d == Decide27(n, hs, {}, {}) IN ~Replicates(d) /\ d.del = "none"
-NoTasks(hs) == \A n \in hs : ~Replicates(Decide27(n, hs, {}, {}))
-,\* a check "replicates" when it hands the replicator a task with at least one candidate node. (With overlapping
-\* rules the code as found keeps calling the replicator with an EMPTY candidate list: a holder remembered from
-\* an earlier rule does not lower the shortage of a later rule - a phantom shortage that copies nothing.)
-Replicates(d) == \E k \in 1..Len(d.tasks) : Len(d.tasks[k].nodes) > 0
-Quiet(hs) == \A n \in hs : LET d == Decide27(n, hs, {}, {}) IN ~Replicates(d) /\ d.del = "none"
-NoTasks(hs) == \A n \in hs : ~Replicates(Decide27(n, hs, {}, {}))
- \* a check "replicates" when it hands the replicator a task with at least one candidate node. (With overlapping
-\* rules the code as found keeps calling the replicator with an EMPTY candidate list: a holder remembered from
-\* an earlier rule does not lower the shortage of a later rule - a phantom shortage that copies nothing.)
-Replicates(d) == \E k \in 1..Len(d.tasks) : Len(d.tasks[k].nodes) > 0
-Quiet(hs) == \A n \in hs : LET d == Decide27(n, hs, {}, {}) IN ~Replicates(d) /\ d.del = "none"
-NoTasks(hs) == \A n \in hs : ~Replicates(Decide27(n, hs, {}, {}))
-d\* a check "replicates" when it hands the replicator a task with at least one candidate node. (With overlapping
-\* rules the code as found keeps calling the replicator with an EMPTY candidate list: a holder remembered from
-\* an earlier rule does not lower the shortage of a later rule - a phantom shortage that copies nothing.)
-Replicates(d) == \E k \in 1..Len(d.tasks) : Len(d.tasks[k].nodes) > 0
-Quiet(hs) == \A n \in hs : LET d == Decide27(n, hs, {}, {}) IN ~Replicates(d) /\ d.del = "none"
-NoTasks(hs) == \A n \in hs : ~Replicates(Decide27(n, hs, {}, {}))
-o\* a check "replicates" when it hands the replicator a task with at least one candidate node. (With overlapping
-\* rules the code as found keeps calling the replicator with an EMPTY candidate list: a holder remembered from
-\* an earlier rule does not lower the shortage of a later rule - a phantom shortage that copies nothing.)
-Replicates(d) == \E k \in 1..Len(d.tasks) : Len(d.tasks[k].nodes) > 0
-Quiet(hs) == \A n \in hs : LET d == Decide27(n, hs, {}, {}) IN ~Replicates(d) /\ d.del = "none"
-NoTasks(hs) == \A n \in hs : ~Replicates(Decide27(n, hs, {}, {}))
-w\* a check "replicates" when it hands the replicator a task with at least one candidate node. (With overlapping
-\* rules the code as found keeps calling the replicator with an EMPTY candidate list: a holder remembered from
-\* an earlier rule does not lower the shortage of a later rule - a phantom shortage that copies nothing.)
-Replicates(d) == \E k \in 1..Len(d.tasks) : Len(d.tasks[k].nodes) > 0
-Quiet(hs) == \A n \in hs : LET d == Decide27(n, hs, {}, {}) IN ~Replicates(d) /\ d.del = "none"
-NoTasks(hs) == \A n \in hs : ~Replicates(Decide27(n, hs, {}, {}))
-n\* a check "replicates" when it hands the replicator a task with at least one candidate node. (With overlapping
-\* rules the code as found keeps calling the replicator with an EMPTY candidate list: a holder remembered from
-\* an earlier rule does not lower the shortage of a later rule - a phantom shortage that copies nothing.)
-Replicates(d) == \E k \in 1..Len(d.tasks) : Len(d.tasks[k].nodes) > 0
-Quiet(hs) == \A n \in hs : LET d == Decide27(n, hs, {}, {}) IN ~Replicates(d) /\ d.del = "none"
-NoTasks(hs) == \A n \in hs : ~Replicates(Decide27(n, hs, {}, {}))
- \* a check "replicates" when it hands the replicator a task with at least one candidate node. (With overlapping
-\* rules the code as found keeps calling the replicator with an EMPTY candidate list: a holder remembered from
-\* an earlier rule does not lower the shortage of a later rule - a phantom shortage that copies nothing.)
-Replicates(d) == \E k \in 1..Len(d.tasks) : Len(d.tasks[k].nodes) > 0
-Quiet(hs) == \A n \in hs : LET d == Decide27(n, hs, {}, {}) IN ~Replicates(d) /\ d.del = "none"
-NoTasks(hs) == \A n \in hs : ~Replicates(Decide27(n, hs, {}, {}))
-|\* a check "replicates" when it hands the replicator a task with at least one candidate node. (With overlapping
-\* rules the code as found keeps calling the replicator with an EMPTY candidate list: a holder remembered from
-\* an earlier rule does not lower the shortage of a later rule - a phantom shortage that copies nothing.)
-Replicates(d) == \E k \in 1..Len(d.tasks) : Len(d.tasks[k].nodes) > 0
-Quiet(hs) == \A n \in hs : LET d == Decide27(n, hs, {}, {}) IN ~Replicates(d) /\ d.del = "none"
-NoTasks(hs) == \A n \in hs : ~Replicates(Decide27(n, hs, {}, {}))
--\* a check "replicates" when it hands the replicator a task with at least one candidate node. (With overlapping
-\* rules the code as found keeps calling the replicator with an EMPTY candidate list: a holder remembered from
-\* an earlier rule does not lower the shortage of a later rule - a phantom shortage that copies nothing.)
-Replicates(d) == \E k \in 1..Len(d.tasks) : Len(d.tasks[k].nodes) > 0
-Quiet(hs) == \A n \in hs : LET d == Decide27(n, hs, {}, {}) IN ~Replicates(d) /\ d.del = "none"
-NoTasks(hs) == \A n \in hs : ~Replicates(Decide27(n, hs, {}, {}))
->\* a check "replicates" when it hands the replicator a task with at least one candidate node. (With overlapping
-\* rules the code as found keeps calling the replicator with an EMPTY candidate list: a holder remembered from
-\* an earlier rule does not lower the shortage of a later rule - a phantom shortage that copies nothing.)
-Replicates(d) == \E k \in 1..Len(d.tasks) : Len(d.tasks[k].nodes) > 0
-Quiet(hs) == \A n \in hs : LET d == Decide27(n, hs, {}, {}) IN ~Replicates(d) /\ d.del = "none"
-NoTasks(hs) == \A n \in hs : ~Replicates(Decide27(n, hs, {}, {}))
- \* a check "replicates" when it hands the replicator a task with at least one candidate node. (With overlapping
-\* rules the code as found keeps calling the replicator with an EMPTY candidate list: a holder remembered from
-\* an earlier rule does not lower the shortage of a later rule - a phantom shortage that copies nothing.)
-Replicates(d) == \E k \in 1..Len(d.tasks) : Len(d.tasks[k].nodes) > 0
-Quiet(hs) == \A n \in hs : LET d == Decide27(n, hs, {}, {}) IN ~Replicates(d) /\ d.del = "none"
-NoTasks(hs) == \A n \in hs : ~Replicates(Decide27(n, hs, {}, {}))
-d\* a check "replicates" when it hands the replicator a task with at least one candidate node. (With overlapping
-\* rules the code as found keeps calling the replicator with an EMPTY candidate list: a holder remembered from
-\* an earlier rule does not lower the shortage of a later rule - a phantom shortage that copies nothing.)
-Replicates(d) == \E k \in 1..Len(d.tasks) : Len(d.tasks[k].nodes) > 0
-Quiet(hs) == \A n \in hs : LET d == Decide27(n, hs, {}, {}) IN ~Replicates(d) /\ d.del = "none"
-NoTasks(hs) == \A n \in hs : ~Replicates(Decide27(n, hs, {}, {}))
-o\* a check "replicates" when it hands the replicator a task with at least one candidate node. (With overlapping
-\* rules the code as found keeps calling the replicator with an EMPTY candidate list: a holder remembered from
-\* an earlier rule does not lower the shortage of a later rule - a phantom shortage that copies nothing.)
-Replicates(d) == \E k \in 1..Len(d.tasks) : Len(d.tasks[k].nodes) > 0
-Quiet(hs) == \A n \in hs : LET d == Decide27(n, hs, {}, {}) IN ~Replicates(d) /\ d.del = "none"
-NoTasks(hs) == \A n \in hs : ~Replicates(Decide27(n, hs, {}, {}))
-w\* a check "replicates" when it hands the replicator a task with at least one candidate node. (With overlapping
-\* rules the code as found keeps calling the replicator with an EMPTY candidate list: a holder remembered from
-\* an earlier rule does not lower the shortage of a later rule - a phantom shortage that copies nothing.)
-Replicates(d) == \E k \in 1..Len(d.tasks) : Len(d.tasks[k].nodes) > 0
-Quiet(hs) == \A n \in hs : LET d == Decide27(n, hs, {}, {}) IN ~Replicates(d) /\ d.del = "none"
-NoTasks(hs) == \A n \in hs : ~Replicates(Decide27(n, hs, {}, {}))
-n\* a check "replicates" when it hands the replicator a task with at least one candidate node. (With overlapping
-\* rules the code as found keeps calling the replicator with an EMPTY candidate list: a holder remembered from
-\* an earlier rule does not lower the shortage of a later rule - a phantom shortage that copies nothing.)
-Replicates(d) == \E k \in 1..Len(d.tasks) : Len(d.tasks[k].nodes) > 0
-Quiet(hs) == \A n \in hs : LET d == Decide27(n, hs, {}, {}) IN ~Replicates(d) /\ d.del = "none"
-NoTasks(hs) == \A n \in hs : ~Replicates(Decide27(n, hs, {}, {}))
-,\* a check "replicates" when it hands the replicator a task with at least one candidate node. (With overlapping
-\* rules the code as found keeps calling the replicator with an EMPTY candidate list: a holder remembered from
-\* an earlier rule does not lower the shortage of a later rule - a phantom shortage that copies nothing.)
-Replicates(d) == \E k \in 1..Len(d.tasks) : Len(d.tasks[k].nodes) > 0
-Quiet(hs) == \A n \in hs : LET d == Decide27(n, hs, {}, {}) IN ~Replicates(d) /\ d.del = "none"
-NoTasks(hs) == \A n \in hs : ~Replicates(Decide27(n, hs, {}, {}))
- \* a check "replicates" when it hands the replicator a task with at least one candidate node. (With overlapping
-\* rules the code as found keeps calling the replicator with an EMPTY candidate list: a holder remembered from
-\* an earlier rule does not lower the shortage of a later rule - a phantom shortage that copies nothing.)
-Replicates(d) == \E k \in 1..Len(d.tasks) : Len(d.tasks[k].nodes) > 0
-Quiet(hs) == \A n \in hs : LET d == Decide27(n, hs, {}, {}) IN ~Replicates(d) /\ d.del = "none"
-NoTasks(hs) == \A n \in hs : ~Replicates(Decide27(n, hs, {}, {}))
-d\* a check "replicates" when it hands the replicator a task with at least one candidate node. (With overlapping
-\* rules the code as found keeps calling the replicator with an EMPTY candidate list: a holder remembered from
-\* an earlier rule does not lower the shortage of a later rule - a phantom shortage that copies nothing.)
-Replicates(d) == \E k \in 1..Len(d.tasks) : Len(d.tasks[k].nodes) > 0
-Quiet(hs) == \A n \in hs : LET d == Decide27(n, hs, {}, {}) IN ~Replicates(d) /\ d.del = "none"
-NoTasks(hs) == \A n \in hs : ~Replicates(Decide27(n, hs, {}, {}))
-e\* a check "replicates" when it hands the replicator a task with at least one candidate node. (With overlapping
-\* rules the code as found keeps calling the replicator with an EMPTY candidate list: a holder remembered from
-\* an earlier rule does not lower the shortage of a later rule - a phantom shortage that copies nothing.)
-Replicates(d) == \E k \in 1..Len(d.tasks) : Len(d.tasks[k].nodes) > 0
-Quiet(hs) == \A n \in hs : LET d == Decide27(n, hs, {}, {}) IN ~Replicates(d) /\ d.del = "none"
-NoTasks(hs) == \A n \in hs : ~Replicates(Decide27(n, hs, {}, {}))
-l\* a check "replicates" when it hands the replicator a task with at least one candidate node. (With overlapping
-\* rules the code as found keeps calling the replicator with an EMPTY candidate list: a holder remembered from
-\* an earlier rule does not lower the shortage of a later rule - a phantom shortage that copies nothing.)
-Replicates(d) == \E k \in 1..Len(d.tasks) : Len(d.tasks[k].nodes) > 0
-Quiet(hs) == \A n \in hs : LET d == Decide27(n, hs, {}, {}) IN ~Replicates(d) /\ d.del = "none"
-NoTasks(hs) == \A n \in hs : ~Replicates(Decide27(n, hs, {}, {}))
- \* a check "replicates" when it hands the replicator a task with at least one candidate node. (With overlapping
-\* rules the code as found keeps calling the replicator with an EMPTY candidate list: a holder remembered from
-\* an earlier rule does not lower the shortage of a later rule - a phantom shortage that copies nothing.)
-Replicates(d) == \E k \in 1..Len(d.tasks) : Len(d.tasks[k].nodes) > 0
-Quiet(hs) == \A n \in hs : LET d == Decide27(n, hs, {}, {}) IN ~Replicates(d) /\ d.del = "none"
-NoTasks(hs) == \A n \in hs : ~Replicates(Decide27(n, hs, {}, {}))
-|\* a check "replicates" when it hands the replicator a task with at least one candidate node. (With overlapping
-\* rules the code as found keeps calling the replicator with an EMPTY candidate list: a holder remembered from
-\* an earlier rule does not lower the shortage of a later rule - a phantom shortage that copies nothing.)
-Replicates(d) == \E k \in 1..Len(d.tasks) : Len(d.tasks[k].nodes) > 0
-Quiet(hs) == \A n \in hs : LET d == Decide27(n, hs, {}, {}) IN ~Replicates(d) /\ d.del = "none"
-NoTasks(hs) == \A n \in hs : ~Replicates(Decide27(n, hs, {}, {}))
--\* a check "replicates" when it hands the replicator a task with at least one candidate node. (With overlapping
-\* rules the code as found keeps calling the replicator with an EMPTY candidate list: a holder remembered from
-\* an earlier rule does not lower the shortage of a later rule - a phantom shortage that copies nothing.)
-Replicates(d) == \E k \in 1..Len(d.tasks) : Len(d.tasks[k].nodes) > 0
-Quiet(hs) == \A n \in hs : LET d == Decide27(n, hs, {}, {}) IN ~Replicates(d) /\ d.del = "none"
-NoTasks(hs) == \A n \in hs : ~Replicates(Decide27(n, hs, {}, {}))
->\* a check "replicates" when it hands the replicator a task with at least one candidate node. (With overlapping
-\* rules the code as found keeps calling the replicator with an EMPTY candidate list: a holder remembered from
-\* an earlier rule does not lower the shortage of a later rule - a phantom shortage that copies nothing.)
-Replicates(d) == \E k \in 1..Len(d.tasks) : Len(d.tasks[k].nodes) > 0
-Quiet(hs) == \A n \in hs : LET d == Decide27(n, hs, {}, {}) IN ~Replicates(d) /\ d.del = "none"
-NoTasks(hs) == \A n \in hs : ~Replicates(Decide27(n, hs, {}, {}))
- \* a check "replicates" when it hands the replicator a task with at least one candidate node. (With overlapping
-\* rules the code as found keeps calling the replicator with an EMPTY candidate list: a holder remembered from
-\* an earlier rule does not lower the shortage of a later rule - a phantom shortage that copies nothing.)
-Replicates(d) == \E k \in 1..Len(d.tasks) : Len(d.tasks[k].nodes) > 0
-Quiet(hs) == \A n \in hs : LET d == Decide27(n, hs, {}, {}) IN ~Replicates(d) /\ d.del = "none"
-NoTasks(hs) == \A n \in hs : ~Replicates(Decide27(n, hs, {}, {}))
-"\* a check "replicates" when it hands the replicator a task with at least one candidate node. (With overlapping
-\* rules the code as found keeps calling the replicator with an EMPTY candidate list: a holder remembered from
-\* an earlier rule does not lower the shortage of a later rule - a phantom shortage that copies nothing.)
-Replicates(d) == \E k \in 1..Len(d.tasks) : Len(d.tasks[k].nodes) > 0
-Quiet(hs) == \A n \in hs : LET d == Decide27(n, hs, {}, {}) IN ~Replicates(d) /\ d.del = "none"
-NoTasks(hs) == \A n \in hs : ~Replicates(Decide27(n, hs, {}, {}))
-n\* a check "replicates" when it hands the replicator a task with at least one candidate node. (With overlapping
-\* rules the code as found keeps calling the replicator with an EMPTY candidate list: a holder remembered from
-\* an earlier rule does not lower the shortage of a later rule - a phantom shortage that copies nothing.)
-Replicates(d) == \E k \in 1..Len(d.tasks) : Len(d.tasks[k].nodes) > 0
-Quiet(hs) == \A n \in hs : LET d == Decide27(n, hs, {}, {}) IN ~Replicates(d) /\ d.del = "none"
-NoTasks(hs) == \A n \in hs : ~Replicates(Decide27(n, hs, {}, {}))
-o\* a check "replicates" when it hands the replicator a task with at least one candidate node. (With overlapping
-\* rules the code as found keeps calling the replicator with an EMPTY candidate list: a holder remembered from
-\* an earlier rule does not lower the shortage of a later rule - a phantom shortage that copies nothing.)
-Replicates(d) == \E k \in 1..Len(d.tasks) : Len(d.tasks[k].nodes) > 0
-Quiet(hs) == \A n \in hs : LET d == Decide27(n, hs, {}, {}) IN ~Replicates(d) /\ d.del = "none"
-NoTasks(hs) == \A n \in hs : ~Replicates(Decide27(n, hs, {}, {}))
-n\* a check "replicates" when it hands the replicator a task with at least one candidate node. (With overlapping
-\* rules the code as found keeps calling the replicator with an EMPTY candidate list: a holder remembered from
-\* an earlier rule does not lower the shortage of a later rule - a phantom shortage that copies nothing.)
-Replicates(d) == \E k \in 1..Len(d.tasks) : Len(d.tasks[k].nodes) > 0
-Quiet(hs) == \A n \in hs : LET d == Decide27(n, hs, {}, {}) IN ~Replicates(d) /\ d.del = "none"
-NoTasks(hs) == \A n \in hs : ~Replicates(Decide27(n, hs, {}, {}))
-e\* a check "replicates" when it hands the replicator a task with at least one candidate node. (With overlapping
-\* rules the code as found keeps calling the replicator with an EMPTY candidate list: a holder remembered from
-\* an earlier rule does not lower the shortage of a later rule - a phantom shortage that copies nothing.)
-Replicates(d) == \E k \in 1..Len(d.tasks) : Len(d.tasks[k].nodes) > 0
-Quiet(hs) == \A n \in hs : LET d == Decide27(n, hs, {}, {}) IN ~Replicates(d) /\ d.del = "none"
-NoTasks(hs) == \A n \in hs : ~Replicates(Decide27(n, hs, {}, {}))
-"\* a check "replicates" when it hands the replicator a task with at least one candidate node. (With overlapping
-\* rules the code as found keeps calling the replicator with an EMPTY candidate list: a holder remembered from
-\* an earlier rule does not lower the shortage of a later rule - a phantom shortage that copies nothing.)
-Replicates(d) == \E k \in 1..Len(d.tasks) : Len(d.tasks[k].nodes) > 0
-Quiet(hs) == \A n \in hs : LET d == Decide27(n, hs, {}, {}) IN ~Replicates(d) /\ d.del = "none"
-NoTasks(hs) == \A n \in hs : ~Replicates(Decide27(n, hs, {}, {}))
-,\* a check "replicates" when it hands the replicator a task with at least one candidate node. (With overlapping
-\* rules the code as found keeps calling the replicator with an EMPTY candidate list: a holder remembered from
-\* an earlier rule does not lower the shortage of a later rule - a phantom shortage that copies nothing.)
-Replicates(d) == \E k \in 1..Len(d.tasks) : Len(d.tasks[k].nodes) > 0
-Quiet(hs) == \A n \in hs : LET d == Decide27(n, hs, {}, {}) IN ~Replicates(d) /\ d.del = "none"
-NoTasks(hs) == \A n \in hs : ~Replicates(Decide27(n, hs, {}, {}))
- \* a check "replicates" when it hands the replicator a task with at least one candidate node. (With overlapping
-\* rules the code as found keeps calling the replicator with an EMPTY candidate list: a holder remembered from
-\* an earlier rule does not lower the shortage of a later rule - a phantom shortage that copies nothing.)
-Replicates(d) == \E k \in 1..Len(d.tasks) : Len(d.tasks[k].nodes) > 0
-Quiet(hs) == \A n \in hs : LET d == Decide27(n, hs, {}, {}) IN ~Replicates(d) /\ d.del = "none"
-NoTasks(hs) == \A n \in hs : ~Replicates(Decide27(n, hs, {}, {}))
-t\* a check "replicates" when it hands the replicator a task with at least one candidate node. (With overlapping
-\* rules the code as found keeps calling the replicator with an EMPTY candidate list: a holder remembered from
-\* an earlier rule does not lower the shortage of a later rule - a phantom shortage that copies nothing.)
-Replicates(d) == \E k \in 1..Len(d.tasks) : Len(d.tasks[k].nodes) > 0
-Quiet(hs) == \A n \in hs : LET d == Decide27(n, hs, {}, {}) IN ~Replicates(d) /\ d.del = "none"
-NoTasks(hs) == \A n \in hs : ~Replicates(Decide27(n, hs, {}, {}))
-a\* a check "replicates" when it hands the replicator a task with at least one candidate node. (With overlapping
-\* rules the code as found keeps calling the replicator with an EMPTY candidate list: a holder remembered from
-\* an earlier rule does not lower the shortage of a later rule - a phantom shortage that copies nothing.)
-Replicates(d) == \E k \in 1..Len(d.tasks) : Len(d.tasks[k].nodes) > 0
-Quiet(hs) == \A n \in hs : LET d == Decide27(n, hs, {}, {}) IN ~Replicates(d) /\ d.del = "none"
-NoTasks(hs) == \A n \in hs : ~Replicates(Decide27(n, hs, {}, {}))
-s\* a check "replicates" when it hands the replicator a task with at least one candidate node. (With overlapping
-\* rules the code as found keeps calling the replicator with an EMPTY candidate list: a holder remembered from
-\* an earlier rule does not lower the shortage of a later rule - a phantom shortage that copies nothing.)
-Replicates(d) == \E k \in 1..Len(d.tasks) : Len(d.tasks[k].nodes) > 0
-Quiet(hs) == \A n \in hs : LET d == Decide27(n, hs, {}, {}) IN ~Replicates(d) /\ d.del = "none"
-NoTasks(hs) == \A n \in hs : ~Replicates(Decide27(n, hs, {}, {}))
-k\* a check "replicates" when it hands the replicator a task with at least one candidate node. (With overlapping
-\* rules the code as found keeps calling the replicator with an EMPTY candidate list: a holder remembered from
-\* an earlier rule does not lower the shortage of a later rule - a phantom shortage that copies nothing.)
-Replicates(d) == \E k \in 1..Len(d.tasks) : Len(d.tasks[k].nodes) > 0
-Quiet(hs) == \A n \in hs : LET d == Decide27(n, hs, {}, {}) IN ~Replicates(d) /\ d.del = "none"
-NoTasks(hs) == \A n \in hs : ~Replicates(Decide27(n, hs, {}, {}))
-s\* a check "replicates" when it hands the replicator a task with at least one candidate node. (With overlapping
-\* rules the code as found keeps calling the replicator with an EMPTY candidate list: a holder remembered from
-\* an earlier rule does not lower the shortage of a later rule - a phantom shortage that copies nothing.)
-Replicates(d) == \E k \in 1..Len(d.tasks) : Len(d.tasks[k].nodes) > 0
-Quiet(hs) == \A n \in hs : LET d == Decide27(n, hs, {}, {}) IN ~Replicates(d) /\ d.del = "none"
-NoTasks(hs) == \A n \in hs : ~Replicates(Decide27(n, hs, {}, {}))
- \* a check "replicates" when it hands the replicator a task with at least one candidate node. (With overlapping
-\* rules the code as found keeps calling the replicator with an EMPTY candidate list: a holder remembered from
-\* an earlier rule does not lower the shortage of a later rule - a phantom shortage that copies nothing.)
-Replicates(d) == \E k \in 1..Len(d.tasks) : Len(d.tasks[k].nodes) > 0
-Quiet(hs) == \A n \in hs : LET d == Decide27(n, hs, {}, {}) IN ~Replicates(d) /\ d.del = "none"
-NoTasks(hs) == \A n \in hs : ~Replicates(Decide27(n, hs, {}, {}))
-|\* a check "replicates" when it hands the replicator a task with at least one candidate node. (With overlapping
-\* rules the code as found keeps calling the replicator with an EMPTY candidate list: a holder remembered from
-\* an earlier rule does not lower the shortage of a later rule - a phantom shortage that copies nothing.)
-Replicates(d) == \E k \in 1..Len(d.tasks) : Len(d.tasks[k].nodes) > 0
-Quiet(hs) == \A n \in hs : LET d == Decide27(n, hs, {}, {}) IN ~Replicates(d) /\ d.del = "none"
-NoTasks(hs) == \A n \in hs : ~Replicates(Decide27(n, hs, {}, {}))
--\* a check "replicates" when it hands the replicator a task with at least one candidate node. (With overlapping
-\* rules the code as found keeps calling the replicator with an EMPTY candidate list: a holder remembered from
-\* an earlier rule does not lower the shortage of a later rule - a phantom shortage that copies nothing.)
-Replicates(d) == \E k \in 1..Len(d.tasks) : Len(d.tasks[k].nodes) > 0
-Quiet(hs) == \A n \in hs : LET d == Decide27(n, hs, {}, {}) IN ~Replicates(d) /\ d.del = "none"
-NoTasks(hs) == \A n \in hs : ~Replicates(Decide27(n, hs, {}, {}))
->\* a check "replicates" when it hands the replicator a task with at least one candidate node. (With overlapping
-\* rules the code as found keeps calling the replicator with an EMPTY candidate list: a holder remembered from
-\* an earlier rule does not lower the shortage of a later rule - a phantom shortage that copies nothing.)
-Replicates(d) == \E k \in 1..Len(d.tasks) : Len(d.tasks[k].nodes) > 0
-Quiet(hs) == \A n \in hs : LET d == Decide27(n, hs, {}, {}) IN ~Replicates(d) /\ d.del = "none"
-NoTasks(hs) == \A n \in hs : ~Replicates(Decide27(n, hs, {}, {}))
- \* a check "replicates" when it hands the replicator a task with at least one candidate node. (With overlapping
-\* rules the code as found keeps calling the replicator with an EMPTY candidate list: a holder remembered from
-\* an earlier rule does not lower the shortage of a later rule - a phantom shortage that copies nothing.)
-Replicates(d) == \E k \in 1..Len(d.tasks) : Len(d.tasks[k].nodes) > 0
-Quiet(hs) == \A n \in hs : LET d == Decide27(n, hs, {}, {}) IN ~Replicates(d) /\ d.del = "none"
-NoTasks(hs) == \A n \in hs : ~Replicates(Decide27(n, hs, {}, {}))
-<\* a check "replicates" when it hands the replicator a task with at least one candidate node. (With overlapping
-\* rules the code as found keeps calling the replicator with an EMPTY candidate list: a holder remembered from
-\* an earlier rule does not lower the shortage of a later rule - a phantom shortage that copies nothing.)
-Replicates(d) == \E k \in 1..Len(d.tasks) : Len(d.tasks[k].nodes) > 0
-Quiet(hs) == \A n \in hs : LET d == Decide27(n, hs, {}, {}) IN ~Replicates(d) /\ d.del = "none"
-NoTasks(hs) == \A n \in hs : ~Replicates(Decide27(n, hs, {}, {}))
-<\* a check "replicates" when it hands the replicator a task with at least one candidate node. (With overlapping
-\* rules the code as found keeps calling the replicator with an EMPTY candidate list: a holder remembered from
-\* an earlier rule does not lower the shortage of a later rule - a phantom shortage that copies nothing.)
-Replicates(d) == \E k \in 1..Len(d.tasks) : Len(d.tasks[k].nodes) > 0
-Quiet(hs) == \A n \in hs : LET d == Decide27(n, hs, {}, {}) IN ~Replicates(d) /\ d.del = "none"
-NoTasks(hs) == \A n \in hs : ~Replicates(Decide27(n, hs, {}, {}))
-[\* a check "replicates" when it hands the replicator a task with at least one candidate node. (With overlapping
-\* rules the code as found keeps calling the replicator with an EMPTY candidate list: a holder remembered from
-\* an earlier rule does not lower the shortage of a later rule - a phantom shortage that copies nothing.)
-Replicates(d) == \E k \in 1..Len(d.tasks) : Len(d.tasks[k].nodes) > 0
-Quiet(hs) == \A n \in hs : LET d == Decide27(n, hs, {}, {}) IN ~Replicates(d) /\ d.del = "none"
-NoTasks(hs) == \A n \in hs : ~Replicates(Decide27(n, hs, {}, {}))
-q\* a check "replicates" when it hands the replicator a task with at least one candidate node. (With overlapping
-\* rules the code as found keeps calling the replicator with an EMPTY candidate list: a holder remembered from
-\* an earlier rule does not lower the shortage of a later rule - a phantom shortage that copies nothing.)
-Replicates(d) == \E k \in 1..Len(d.tasks) : Len(d.tasks[k].nodes) > 0
-Quiet(hs) == \A n \in hs : LET d == Decide27(n, hs, {}, {}) IN ~Replicates(d) /\ d.del = "none"
-NoTasks(hs) == \A n \in hs : ~Replicates(Decide27(n, hs, {}, {}))
- \* a check "replicates" when it hands the replicator a task with at least one candidate node. (With overlapping
-\* rules the code as found keeps calling the replicator with an EMPTY candidate list: a holder remembered from
-\* an earlier rule does not lower the shortage of a later rule - a phantom shortage that copies nothing.)
-Replicates(d) == \E k \in 1..Len(d.tasks) : Len(d.tasks[k].nodes) > 0
-Quiet(hs) == \A n \in hs : LET d == Decide27(n, hs, {}, {}) IN ~Replicates(d) /\ d.del = "none"
-NoTasks(hs) == \A n \in hs : ~Replicates(Decide27(n, hs, {}, {}))
-|\* a check "replicates" when it hands the replicator a task with at least one candidate node. (With overlapping
-\* rules the code as found keeps calling the replicator with an EMPTY candidate list: a holder remembered from
-\* an earlier rule does not lower the shortage of a later rule - a phantom shortage that copies nothing.)
-Replicates(d) == \E k \in 1..Len(d.tasks) : Len(d.tasks[k].nodes) > 0
-Quiet(hs) == \A n \in hs : LET d == Decide27(n, hs, {}, {}) IN ~Replicates(d) /\ d.del = "none"
-NoTasks(hs) == \A n \in hs : ~Replicates(Decide27(n, hs, {}, {}))
--\* a check "replicates" when it hands the replicator a task with at least one candidate node. (With overlapping
-\* rules the code as found keeps calling the replicator with an EMPTY candidate list: a holder remembered from
-\* an earlier rule does not lower the shortage of a later rule - a phantom shortage that copies nothing.)
-Replicates(d) == \E k \in 1..Len(d.tasks) : Len(d.tasks[k].nodes) > 0
-Quiet(hs) == \A n \in hs : LET d == Decide27(n, hs, {}, {}) IN ~Replicates(d) /\ d.del = "none"
-NoTasks(hs) == \A n \in hs : ~Replicates(Decide27(n, hs, {}, {}))
->\* a check "replicates" when it hands the replicator a task with at least one candidate node. (With overlapping
-\* rules the code as found keeps calling the replicator with an EMPTY candidate list: a holder remembered from
-\* an earlier rule does not lower the shortage of a later rule - a phantom shortage that copies nothing.)
-Replicates(d) == \E k \in 1..Len(d.tasks) : Len(d.tasks[k].nodes) > 0
-Quiet(hs) == \A n \in hs : LET d == Decide27(n, hs, {}, {}) IN ~Replicates(d) /\ d.del = "none"
-NoTasks(hs) == \A n \in hs : ~Replicates(Decide27(n, hs, {}, {}))
- \* a check "replicates" when it hands the replicator a task with at least one candidate node. (With overlapping
-\* rules the code as found keeps calling the replicator with an EMPTY candidate list: a holder remembered from
-\* an earlier rule does not lower the shortage of a later rule - a phantom shortage that copies nothing.)
-Replicates(d) == \E k \in 1..Len(d.tasks) : Len(d.tasks[k].nodes) > 0
-Quiet(hs) == \A n \in hs : LET d == Decide27(n, hs, {}, {}) IN ~Replicates(d) /\ d.del = "none"
-NoTasks(hs) == \A n \in hs : ~Replicates(Decide27(n, hs, {}, {}))
-q\* a check "replicates" when it hands the replicator a task with at least one candidate node. (With overlapping
-\* rules the code as found keeps calling the replicator with an EMPTY candidate list: a holder remembered from
-\* an earlier rule does not lower the shortage of a later rule - a phantom shortage that copies nothing.)
-Replicates(d) == \E k \in 1..Len(d.tasks) : Len(d.tasks[k].nodes) > 0
-Quiet(hs) == \A n \in hs : LET d == Decide27(n, hs, {}, {}) IN ~Replicates(d) /\ d.del = "none"
-NoTasks(hs) == \A n \in hs : ~Replicates(Decide27(n, hs, {}, {}))
-,\* a check "replicates" when it hands the replicator a task with at least one candidate node. (With overlapping
-\* rules the code as found keeps calling the replicator with an EMPTY candidate list: a holder remembered from
-\* an earlier rule does not lower the shortage of a later rule - a phantom shortage that copies nothing.)
-Replicates(d) == \E k \in 1..Len(d.tasks) : Len(d.tasks[k].nodes) > 0
-Quiet(hs) == \A n \in hs : LET d == Decide27(n, hs, {}, {}) IN ~Replicates(d) /\ d.del = "none"
-NoTasks(hs) == \A n \in hs : ~Replicates(Decide27(n, hs, {}, {}))
- \* a check "replicates" when it hands the replicator a task with at least one candidate node. (With overlapping
-\* rules the code as found keeps calling the replicator with an EMPTY candidate list: a holder remembered from
-\* an earlier rule does not lower the shortage of a later rule - a phantom shortage that copies nothing.)
-Replicates(d) == \E k \in 1..Len(d.tasks) : Len(d.tasks[k].nodes) > 0
-Quiet(hs) == \A n \in hs : LET d == Decide27(n, hs, {}, {}) IN ~Replicates(d) /\ d.del = "none"
-NoTasks(hs) == \A n \in hs : ~Replicates(Decide27(n, hs, {}, {}))
-n\* a check "replicates" when it hands the replicator a task with at least one candidate node. (With overlapping
-\* rules the code as found keeps calling the replicator with an EMPTY candidate list: a holder remembered from
-\* an earlier rule does not lower the shortage of a later rule - a phantom shortage that copies nothing.)
-Replicates(d) == \E k \in 1..Len(d.tasks) : Len(d.tasks[k].nodes) > 0
-Quiet(hs) == \A n \in hs : LET d == Decide27(n, hs, {}, {}) IN ~Replicates(d) /\ d.del = "none"
-NoTasks(hs) == \A n \in hs : ~Replicates(Decide27(n, hs, {}, {}))
-o\* a check "replicates" when it hands the replicator a task with at least one candidate node. (With overlapping
-\* rules the code as found keeps calling the replicator with an EMPTY candidate list: a holder remembered from
-\* an earlier rule does not lower the shortage of a later rule - a phantom shortage that copies nothing.)
-Replicates(d) == \E k \in 1..Len(d.tasks) : Len(d.tasks[k].nodes) > 0
-Quiet(hs) == \A n \in hs : LET d == Decide27(n, hs, {}, {}) IN ~Replicates(d) /\ d.del = "none"
-NoTasks(hs) == \A n \in hs : ~Replicates(Decide27(n, hs, {}, {}))
-d\* a check "replicates" when it hands the replicator a task with at least one candidate node. (With overlapping
-\* rules the code as found keeps calling the replicator with an EMPTY candidate list: a holder remembered from
-\* an earlier rule does not lower the shortage of a later rule - a phantom shortage that copies nothing.)
-Replicates(d) == \E k \in 1..Len(d.tasks) : Len(d.tasks[k].nodes) > 0
-Quiet(hs) == \A n \in hs : LET d == Decide27(n, hs, {}, {}) IN ~Replicates(d) /\ d.del = "none"
-NoTasks(hs) == \A n \in hs : ~Replicates(Decide27(n, hs, {}, {}))
-e\* a check "replicates" when it hands the replicator a task with at least one candidate node. (With overlapping
-\* rules the code as found keeps calling the replicator with an EMPTY candidate list: a holder remembered from
-\* an earlier rule does not lower the shortage of a later rule - a phantom shortage that copies nothing.)
-Replicates(d) == \E k \in 1..Len(d.tasks) : Len(d.tasks[k].nodes) > 0
-Quiet(hs) == \A n \in hs : LET d == Decide27(n, hs, {}, {}) IN ~Replicates(d) /\ d.del = "none"
-NoTasks(hs) == \A n \in hs : ~Replicates(Decide27(n, hs, {}, {}))
-s\* a check "replicates" when it hands the replicator a task with at least one candidate node. (With overlapping
-\* rules the code as found keeps calling the replicator with an EMPTY candidate list: a holder remembered from
-\* an earlier rule does not lower the shortage of a later rule - a phantom shortage that copies nothing.)
-Replicates(d) == \E k \in 1..Len(d.tasks) : Len(d.tasks[k].nodes) > 0
-Quiet(hs) == \A n \in hs : LET d == Decide27(n, hs, {}, {}) IN ~Replicates(d) /\ d.del = "none"
-NoTasks(hs) == \A n \in hs : ~Replicates(Decide27(n, hs, {}, {}))
- \* a check "replicates" when it hands the replicator a task with at least one candidate node. (With overlapping
-\* rules the code as found keeps calling the replicator with an EMPTY candidate list: a holder remembered from
-\* an earlier rule does not lower the shortage of a later rule - a phantom shortage that copies nothing.)
-Replicates(d) == \E k \in 1..Len(d.tasks) : Len(d.tasks[k].nodes) > 0
-Quiet(hs) == \A n \in hs : LET d == Decide27(n, hs, {}, {}) IN ~Replicates(d) /\ d.del = "none"
-NoTasks(hs) == \A n \in hs : ~Replicates(Decide27(n, hs, {}, {}))
-|\* a check "replicates" when it hands the replicator a task with at least one candidate node. (With overlapping
-\* rules the code as found keeps calling the replicator with an EMPTY candidate list: a holder remembered from
-\* an earlier rule does not lower the shortage of a later rule - a phantom shortage that copies nothing.)
-Replicates(d) == \E k \in 1..Len(d.tasks) : Len(d.tasks[k].nodes) > 0
-Quiet(hs) == \A n \in hs : LET d == Decide27(n, hs, {}, {}) IN ~Replicates(d) /\ d.del = "none"
-NoTasks(hs) == \A n \in hs : ~Replicates(Decide27(n, hs, {}, {}))
--\* a check "replicates" when it hands the replicator a task with at least one candidate node. (With overlapping
-\* rules the code as found keeps calling the replicator with an EMPTY candidate list: a holder remembered from
-\* an earlier rule does not lower the shortage of a later rule - a phantom shortage that copies nothing.)
-Replicates(d) == \E k \in 1..Len(d.tasks) : Len(d.tasks[k].nodes) > 0
-Quiet(hs) == \A n \in hs : LET d == Decide27(n, hs, {}, {}) IN ~Replicates(d) /\ d.del = "none"
-NoTasks(hs) == \A n \in hs : ~Replicates(Decide27(n, hs, {}, {}))
->\* a check "replicates" when it hands the replicator a task with at least one candidate node. (With overlapping
-\* rules the code as found keeps calling the replicator with an EMPTY candidate list: a holder remembered from
-\* an earlier rule does not lower the shortage of a later rule - a phantom shortage that copies nothing.)
-Replicates(d) == \E k \in 1..Len(d.tasks) : Len(d.tasks[k].nodes) > 0
-Quiet(hs) == \A n \in hs : LET d == Decide27(n, hs, {}, {}) IN ~Replicates(d) /\ d.del = "none"
-NoTasks(hs) == \A n \in hs : ~Replicates(Decide27(n, hs, {}, {}))
- \* a check "replicates" when it hands the replicator a task with at least one candidate node. (With overlapping
-\* rules the code as found keeps calling the replicator with an EMPTY candidate list: a holder remembered from
-\* an earlier rule does not lower the shortage of a later rule - a phantom shortage that copies nothing.)
-Replicates(d) == \E k \in 1..Len(d.tasks) : Len(d.tasks[k].nodes) > 0
-Quiet(hs) == \A n \in hs : LET d == Decide27(n, hs, {}, {}) IN ~Replicates(d) /\ d.del = "none"
-NoTasks(hs) == \A n \in hs : ~Replicates(Decide27(n, hs, {}, {}))
-n\* a check "replicates" when it hands the replicator a task with at least one candidate node. (With overlapping
-\* rules the code as found keeps calling the replicator with an EMPTY candidate list: a holder remembered from
-\* an earlier rule does not lower the shortage of a later rule - a phantom shortage that copies nothing.)
-Replicates(d) == \E k \in 1..Len(d.tasks) : Len(d.tasks[k].nodes) > 0
-Quiet(hs) == \A n \in hs : LET d == Decide27(n, hs, {}, {}) IN ~Replicates(d) /\ d.del = "none"
-NoTasks(hs) == \A n \in hs : ~Replicates(Decide27(n, hs, {}, {}))
-o\* a check "replicates" when it hands the replicator a task with at least one candidate node. (With overlapping
-\* rules the code as found keeps calling the replicator with an EMPTY candidate list: a holder remembered from
-\* an earlier rule does not lower the shortage of a later rule - a phantom shortage that copies nothing.)
-Replicates(d) == \E k \in 1..Len(d.tasks) : Len(d.tasks[k].nodes) > 0
-Quiet(hs) == \A n \in hs : LET d == Decide27(n, hs, {}, {}) IN ~Replicates(d) /\ d.del = "none"
-NoTasks(hs) == \A n \in hs : ~Replicates(Decide27(n, hs, {}, {}))
-d\* a check "replicates" when it hands the replicator a task with at least one candidate node. (With overlapping
-\* rules the code as found keeps calling the replicator with an EMPTY candidate list: a holder remembered from
-\* an earlier rule does not lower the shortage of a later rule - a phantom shortage that copies nothing.)
-Replicates(d) == \E k \in 1..Len(d.tasks) : Len(d.tasks[k].nodes) > 0
-Quiet(hs) == \A n \in hs : LET d == Decide27(n, hs, {}, {}) IN ~Replicates(d) /\ d.del = "none"
-NoTasks(hs) == \A n \in hs : ~Replicates(Decide27(n, hs, {}, {}))
-e\* a check "replicates" when it hands the replicator a task with at least one candidate node. (With overlapping
-\* rules the code as found keeps calling the replicator with an EMPTY candidate list: a holder remembered from
-\* an earlier rule does not lower the shortage of a later rule - a phantom shortage that copies nothing.)
-Replicates(d) == \E k \in 1..Len(d.tasks) : Len(d.tasks[k].nodes) > 0
-Quiet(hs) == \A n \in hs : LET d == Decide27(n, hs, {}, {}) IN ~Replicates(d) /\ d.del = "none"
-NoTasks(hs) == \A n \in hs : ~Replicates(Decide27(n, hs, {}, {}))
-s\* a check "replicates" when it hands the replicator a task with at least one candidate node. (With overlapping
-\* rules the code as found keeps calling the replicator with an EMPTY candidate list: a holder remembered from
-\* an earlier rule does not lower the shortage of a later rule - a phantom shortage that copies nothing.)
-Replicates(d) == \E k \in 1..Len(d.tasks) : Len(d.tasks[k].nodes) > 0
-Quiet(hs) == \A n \in hs : LET d == Decide27(n, hs, {}, {}) IN ~Replicates(d) /\ d.del = "none"
-NoTasks(hs) == \A n \in hs : ~Replicates(Decide27(n, hs, {}, {}))
-,\* a check "replicates" when it hands the replicator a task with at least one candidate node. (With overlapping
-\* rules the code as found keeps calling the replicator with an EMPTY candidate list: a holder remembered from
-\* an earlier rule does not lower the shortage of a later rule - a phantom shortage that copies nothing.)
-Replicates(d) == \E k \in 1..Len(d.tasks) : Len(d.tasks[k].nodes) > 0
-Quiet(hs) == \A n \in hs : LET d == Decide27(n, hs, {}, {}) IN ~Replicates(d) /\ d.del = "none"
-NoTasks(hs) == \A n \in hs : ~Replicates(Decide27(n, hs, {}, {}))
- \* a check "replicates" when it hands the replicator a task with at least one candidate node. (With overlapping
-\* rules the code as found keeps calling the replicator with an EMPTY candidate list: a holder remembered from
-\* an earlier rule does not lower the shortage of a later rule - a phantom shortage that copies nothing.)
-Replicates(d) == \E k \in 1..Len(d.tasks) : Len(d.tasks[k].nodes) > 0
-Quiet(hs) == \A n \in hs : LET d == Decide27(n, hs, {}, {}) IN ~Replicates(d) /\ d.del = "none"
-NoTasks(hs) == \A n \in hs : ~Replicates(Decide27(n, hs, {}, {}))
-o\* a check "replicates" when it hands the replicator a task with at least one candidate node. (With overlapping
-\* rules the code as found keeps calling the replicator with an EMPTY candidate list: a holder remembered from
-\* an earlier rule does not lower the shortage of a later rule - a phantom shortage that copies nothing.)
-Replicates(d) == \E k \in 1..Len(d.tasks) : Len(d.tasks[k].nodes) > 0
-Quiet(hs) == \A n \in hs : LET d == Decide27(n, hs, {}, {}) IN ~Replicates(d) /\ d.del = "none"
-NoTasks(hs) == \A n \in hs : ~Replicates(Decide27(n, hs, {}, {}))
-k\* a check "replicates" when it hands the replicator a task with at least one candidate node. (With overlapping
-\* rules the code as found keeps calling the replicator with an EMPTY candidate list: a holder remembered from
-\* an earlier rule does not lower the shortage of a later rule - a phantom shortage that copies nothing.)
-Replicates(d) == \E k \in 1..Len(d.tasks) : Len(d.tasks[k].nodes) > 0
-Quiet(hs) == \A n \in hs : LET d == Decide27(n, hs, {}, {}) IN ~Replicates(d) /\ d.del = "none"
-NoTasks(hs) == \A n \in hs : ~Replicates(Decide27(n, hs, {}, {}))
- \* a check "replicates" when it hands the replicator a task with at least one candidate node. (With overlapping
-\* rules the code as found keeps calling the replicator with an EMPTY candidate list: a holder remembered from
-\* an earlier rule does not lower the shortage of a later rule - a phantom shortage that copies nothing.)
-Replicates(d) == \E k \in 1..Len(d.tasks) : Len(d.tasks[k].nodes) > 0
-Quiet(hs) == \A n \in hs : LET d == Decide27(n, hs, {}, {}) IN ~Replicates(d) /\ d.del = "none"
-NoTasks(hs) == \A n \in hs : ~Replicates(Decide27(n, hs, {}, {}))
-|\* a check "replicates" when it hands the replicator a task with at least one candidate node. (With overlapping
-\* rules the code as found keeps calling the replicator with an EMPTY candidate list: a holder remembered from
-\* an earlier rule does not lower the shortage of a later rule - a phantom shortage that copies nothing.)
-Replicates(d) == \E k \in 1..Len(d.tasks) : Len(d.tasks[k].nodes) > 0
-Quiet(hs) == \A n \in hs : LET d == Decide27(n, hs, {}, {}) IN ~Replicates(d) /\ d.del = "none"
-NoTasks(hs) == \A n \in hs : ~Replicates(Decide27(n, hs, {}, {}))
--\* a check "replicates" when it hands the replicator a task with at least one candidate node. (With overlapping
-\* rules the code as found keeps calling the replicator with an EMPTY candidate list: a holder remembered from
-\* an earlier rule does not lower the shortage of a later rule - a phantom shortage that copies nothing.)
-Replicates(d) == \E k \in 1..Len(d.tasks) : Len(d.tasks[k].nodes) > 0
-Quiet(hs) == \A n \in hs : LET d == Decide27(n, hs, {}, {}) IN ~Replicates(d) /\ d.del = "none"
-NoTasks(hs) == \A n \in hs : ~Replicates(Decide27(n, hs, {}, {}))
->\* a check "replicates" when it hands the replicator a task with at least one candidate node. (With overlapping
-\* rules the code as found keeps calling the replicator with an EMPTY candidate list: a holder remembered from
-\* an earlier rule does not lower the shortage of a later rule - a phantom shortage that copies nothing.)
-Replicates(d) == \E k \in 1..Len(d.tasks) : Len(d.tasks[k].nodes) > 0
-Quiet(hs) == \A n \in hs : LET d == Decide27(n, hs, {}, {}) IN ~Replicates(d) /\ d.del = "none"
-NoTasks(hs) == \A n \in hs : ~Replicates(Decide27(n, hs, {}, {}))
- \* a check "replicates" when it hands the replicator a task with at least one candidate node. (With overlapping
-\* rules the code as found keeps calling the replicator with an EMPTY candidate list: a holder remembered from
-\* an earlier rule does not lower the shortage of a later rule - a phantom shortage that copies nothing.)
-Replicates(d) == \E k \in 1..Len(d.tasks) : Len(d.tasks[k].nodes) > 0
-Quiet(hs) == \A n \in hs : LET d == Decide27(n, hs, {}, {}) IN ~Replicates(d) /\ d.del = "none"
-NoTasks(hs) == \A n \in hs : ~Replicates(Decide27(n, hs, {}, {}))
-o\* a check "replicates" when it hands the replicator a task with at least one candidate node. (With overlapping
-\* rules the code as found keeps calling the replicator with an EMPTY candidate list: a holder remembered from
-\* an earlier rule does not lower the shortage of a later rule - a phantom shortage that copies nothing.)
-Replicates(d) == \E k \in 1..Len(d.tasks) : Len(d.tasks[k].nodes) > 0
-Quiet(hs) == \A n \in hs : LET d == Decide27(n, hs, {}, {}) IN ~Replicates(d) /\ d.del = "none"
-NoTasks(hs) == \A n \in hs : ~Replicates(Decide27(n, hs, {}, {}))
-k\* a check "replicates" when it hands the replicator a task with at least one candidate node. (With overlapping
-\* rules the code as found keeps calling the replicator with an EMPTY candidate list: a holder remembered from
-\* an earlier rule does not lower the shortage of a later rule - a phantom shortage that copies nothing.)
-Replicates(d) == \E k \in 1..Len(d.tasks) : Len(d.tasks[k].nodes) > 0
-Quiet(hs) == \A n \in hs : LET d == Decide27(n, hs, {}, {}) IN ~Replicates(d) /\ d.del = "none"
-NoTasks(hs) == \A n \in hs : ~Replicates(Decide27(n, hs, {}, {}))
-]\* a check "replicates" when it hands the replicator a task with at least one candidate node. (With overlapping
-\* rules the code as found keeps calling the replicator with an EMPTY candidate list: a holder remembered from
-\* an earlier rule does not lower the shortage of a later rule - a phantom shortage that copies nothing.)
-Replicates(d) == \E k \in 1..Len(d.tasks) : Len(d.tasks[k].nodes) > 0
-Quiet(hs) == \A n \in hs : LET d == Decide27(n, hs, {}, {}) IN ~Replicates(d) /\ d.del = "none"
-NoTasks(hs) == \A n \in hs : ~Replicates(Decide27(n, hs, {}, {}))
->\* a check "replicates" when it hands the replicator a task with at least one candidate node. (With overlapping
-\* rules the code as found keeps calling the replicator with an EMPTY candidate list: a holder remembered from
-\* an earlier rule does not lower the shortage of a later rule - a phantom shortage that copies nothing.)
-Replicates(d) == \E k \in 1..Len(d.tasks) : Len(d.tasks[k].nodes) > 0
-Quiet(hs) == \A n \in hs : LET d == Decide27(n, hs, {}, {}) IN ~Replicates(d) /\ d.del = "none"
-NoTasks(hs) == \A n \in hs : ~Replicates(Decide27(n, hs, {}, {}))
->\* a check "replicates" when it hands the replicator a task with at least one candidate node. (With overlapping
-\* rules the code as found keeps calling the replicator with an EMPTY candidate list: a holder remembered from
-\* an earlier rule does not lower the shortage of a later rule - a phantom shortage that copies nothing.)
-Replicates(d) == \E k \in 1..Len(d.tasks) : Len(d.tasks[k].nodes) > 0
-Quiet(hs) == \A n \in hs : LET d == Decide27(n, hs, {}, {}) IN ~Replicates(d) /\ d.del = "none"
-NoTasks(hs) == \A n \in hs : ~Replicates(Decide27(n, hs, {}, {}))
-,\* a check "replicates" when it hands the replicator a task with at least one candidate node. (With overlapping
-\* rules the code as found keeps calling the replicator with an EMPTY candidate list: a holder remembered from
-\* an earlier rule does not lower the shortage of a later rule - a phantom shortage that copies nothing.)
-Replicates(d) == \E k \in 1..Len(d.tasks) : Len(d.tasks[k].nodes) > 0
-Quiet(hs) == \A n \in hs : LET d == Decide27(n, hs, {}, {}) IN ~Replicates(d) /\ d.del = "none"
-NoTasks(hs) == \A n \in hs : ~Replicates(Decide27(n, hs, {}, {}))
-
-\* a check "replicates" when it hands the replicator a task with at least one candidate node. (With overlapping
-\* rules the code as found keeps calling the replicator with an EMPTY candidate list: a holder remembered from
-\* an earlier rule does not lower the shortage of a later rule - a phantom shortage that copies nothing.)
-Replicates(d) == \E k \in 1..Len(d.tasks) : Len(d.tasks[k].nodes) > 0
-Quiet(hs) == \A n \in hs : LET d == Decide27(n, hs, {}, {}) IN ~Replicates(d) /\ d.del = "none"
-NoTasks(hs) == \A n \in hs : ~Replicates(Decide27(n, hs, {}, {}))
- \* a check "replicates" when it hands the replicator a task with at least one candidate node. (With overlapping
-\* rules the code as found keeps calling the replicator with an EMPTY candidate list: a holder remembered from
-\* an earlier rule does not lower the shortage of a later rule - a phantom shortage that copies nothing.)
-Replicates(d) == \E k \in 1..Len(d.tasks) : Len(d.tasks[k].nodes) > 0
-Quiet(hs) == \A n \in hs : LET d == Decide27(n, hs, {}, {}) IN ~Replicates(d) /\ d.del = "none"
-NoTasks(hs) == \A n \in hs : ~Replicates(Decide27(n, hs, {}, {}))
- \* a check "replicates" when it hands the replicator a task with at least one candidate node. (With overlapping
-\* rules the code as found keeps calling the replicator with an EMPTY candidate list: a holder remembered from
-\* an earlier rule does not lower the shortage of a later rule - a phantom shortage that copies nothing.)
-Replicates(d) == \E k \in 1..Len(d.tasks) : Len(d.tasks[k].nodes) > 0
-Quiet(hs) == \A n \in hs : LET d == Decide27(n, hs, {}, {}) IN ~Replicates(d) /\ d.del = "none"
-NoTasks(hs) == \A n \in hs : ~Replicates(Decide27(n, hs, {}, {}))
- \* a check "replicates" when it hands the replicator a task with at least one candidate node. (With overlapping
-\* rules the code as found keeps calling the replicator with an EMPTY candidate list: a holder remembered from
-\* an earlier rule does not lower the shortage of a later rule - a phantom shortage that copies nothing.)
-Replicates(d) == \E k \in 1..Len(d.tasks) : Len(d.tasks[k].nodes) > 0
-Quiet(hs) == \A n \in hs : LET d == Decide27(n, hs, {}, {}) IN ~Replicates(d) /\ d.del = "none"
-NoTasks(hs) == \A n \in hs : ~Replicates(Decide27(n, hs, {}, {}))
- \* a check "replicates" when it hands the replicator a task with at least one candidate node. (With overlapping
-\* rules the code as found keeps calling the replicator with an EMPTY candidate list: a holder remembered from
-\* an earlier rule does not lower the shortage of a later rule - a phantom shortage that copies nothing.)
-Replicates(d) == \E k \in 1..Len(d.tasks) : Len(d.tasks[k].nodes) > 0
-Quiet(hs) == \A n \in hs : LET d == Decide27(n, hs, {}, {}) IN ~Replicates(d) /\ d.del = "none"
-NoTasks(hs) == \A n \in hs : ~Replicates(Decide27(n, hs, {}, {}))
- \* a check "replicates" when it hands the replicator a task with at least one candidate node. (With overlapping
-\* rules the code as found keeps calling the replicator with an EMPTY candidate list: a holder remembered from
-\* an earlier rule does not lower the shortage of a later rule - a phantom shortage that copies nothing.)
-Replicates(d) == \E k \in 1..Len(d.tasks) : Len(d.tasks[k].nodes) > 0
-Quiet(hs) == \A n \in hs : LET d == Decide27(n, hs, {}, {}) IN ~Replicates(d) /\ d.del = "none"
-NoTasks(hs) == \A n \in hs : ~Replicates(Decide27(n, hs, {}, {}))
- \* a check "replicates" when it hands the replicator a task with at least one candidate node. (With overlapping
-\* rules the code as found keeps calling the replicator with an EMPTY candidate list: a holder remembered from
-\* an earlier rule does not lower the shortage of a later rule - a phantom shortage that copies nothing.)
-Replicates(d) == \E k \in 1..Len(d.tasks) : Len(d.tasks[k].nodes) > 0
-Quiet(hs) == \A n \in hs : LET d == Decide27(n, hs, {}, {}) IN ~Replicates(d) /\ d.del = "none"
-NoTasks(hs) == \A n \in hs : ~Replicates(Decide27(n, hs, {}, {}))
- \* a check "replicates" when it hands the replicator a task with at least one candidate node. (With overlapping
-\* rules the code as found keeps calling the replicator with an EMPTY candidate list: a holder remembered from
-\* an earlier rule does not lower the shortage of a later rule - a phantom shortage that copies nothing.)
-Replicates(d) == \E k \in 1..Len(d.tasks) : Len(d.tasks[k].nodes) > 0
-Quiet(hs) == \A n \in hs : LET d == Decide27(n, hs, {}, {}) IN ~Replicates(d) /\ d.del = "none"
-NoTasks(hs) == \A n \in hs : ~Replicates(Decide27(n, hs, {}, {}))
- \* a check "replicates" when it hands the replicator a task with at least one candidate node. (With overlapping
-\* rules the code as found keeps calling the replicator with an EMPTY candidate list: a holder remembered from
-\* an earlier rule does not lower the shortage of a later rule - a phantom shortage that copies nothing.)
-Replicates(d) == \E k \in 1..Len(d.tasks) : Len(d.tasks[k].nodes) > 0
-Quiet(hs) == \A n \in hs : LET d == Decide27(n, hs, {}, {}) IN ~Replicates(d) /\ d.del = "none"
-NoTasks(hs) == \A n \in hs : ~Replicates(Decide27(n, hs, {}, {}))
- \* a check "replicates" when it hands the replicator a task with at least one candidate node. (With overlapping
-\* rules the code as found keeps calling the replicator with an EMPTY candidate list: a holder remembered from
-\* an earlier rule does not lower the shortage of a later rule - a phantom shortage that copies nothing.)
-Replicates(d) == \E k \in 1..Len(d.tasks) : Len(d.tasks[k].nodes) > 0
-Quiet(hs) == \A n \in hs : LET d == Decide27(n, hs, {}, {}) IN ~Replicates(d) /\ d.del = "none"
-NoTasks(hs) == \A n \in hs : ~Replicates(Decide27(n, hs, {}, {}))
- \* a check "replicates" when it hands the replicator a task with at least one candidate node. (With overlapping
-\* rules the code as found keeps calling the replicator with an EMPTY candidate list: a holder remembered from
-\* an earlier rule does not lower the shortage of a later rule - a phantom shortage that copies nothing.)
-Replicates(d) == \E k \in 1..Len(d.tasks) : Len(d.tasks[k].nodes) > 0
-Quiet(hs) == \A n \in hs : LET d == Decide27(n, hs, {}, {}) IN ~Replicates(d) /\ d.del = "none"
-NoTasks(hs) == \A n \in hs : ~Replicates(Decide27(n, hs, {}, {}))
- \* a check "replicates" when it hands the replicator a task with at least one candidate node. (With overlapping
-\* rules the code as found keeps calling the replicator with an EMPTY candidate list: a holder remembered from
-\* an earlier rule does not lower the shortage of a later rule - a phantom shortage that copies nothing.)
-Replicates(d) == \E k \in 1..Len(d.tasks) : Len(d.tasks[k].nodes) > 0
-Quiet(hs) == \A n \in hs : LET d == Decide27(n, hs, {}, {}) IN ~Replicates(d) /\ d.del = "none"
-NoTasks(hs) == \A n \in hs : ~Replicates(Decide27(n, hs, {}, {}))
- \* a check "replicates" when it hands the replicator a task with at least one candidate node. (With overlapping
-\* rules the code as found keeps calling the replicator with an EMPTY candidate list: a holder remembered from
-\* an earlier rule does not lower the shortage of a later rule - a phantom shortage that copies nothing.)
-Replicates(d) == \E k \in 1..Len(d.tasks) : Len(d.tasks[k].nodes) > 0
-Quiet(hs) == \A n \in hs : LET d == Decide27(n, hs, {}, {}) IN ~Replicates(d) /\ d.del = "none"
-NoTasks(hs) == \A n \in hs : ~Replicates(Decide27(n, hs, {}, {}))
- \* a check "replicates" when it hands the replicator a task with at least one candidate node. (With overlapping
-\* rules the code as found keeps calling the replicator with an EMPTY candidate list: a holder remembered from
-\* an earlier rule does not lower the shortage of a later rule - a phantom shortage that copies nothing.)
-Replicates(d) == \E k \in 1..Len(d.tasks) : Len(d.tasks[k].nodes) > 0
-Quiet(hs) == \A n \in hs : LET d == Decide27(n, hs, {}, {}) IN ~Replicates(d) /\ d.del = "none"
-NoTasks(hs) == \A n \in hs : ~Replicates(Decide27(n, hs, {}, {}))
- \* a check "replicates" when it hands the replicator a task with at least one candidate node. (With overlapping
-\* rules the code as found keeps calling the replicator with an EMPTY candidate list: a holder remembered from
-\* an earlier rule does not lower the shortage of a later rule - a phantom shortage that copies nothing.)
-Replicates(d) == \E k \in 1..Len(d.tasks) : Len(d.tasks[k].nodes) > 0
-Quiet(hs) == \A n \in hs : LET d == Decide27(n, hs, {}, {}) IN ~Replicates(d) /\ d.del = "none"
-NoTasks(hs) == \A n \in hs : ~Replicates(Decide27(n, hs, {}, {}))
- \* a check "replicates" when it hands the replicator a task with at least one candidate node. (With overlapping
-\* rules the code as found keeps calling the replicator with an EMPTY candidate list: a holder remembered from
-\* an earlier rule does not lower the shortage of a later rule - a phantom shortage that copies nothing.)
-Replicates(d) == \E k \in 1..Len(d.tasks) : Len(d.tasks[k].nodes) > 0
-Quiet(hs) == \A n \in hs : LET d == Decide27(n, hs, {}, {}) IN ~Replicates(d) /\ d.del = "none"
-NoTasks(hs) == \A n \in hs : ~Replicates(Decide27(n, hs, {}, {}))
- \* a check "replicates" when it hands the replicator a task with at least one candidate node. (With overlapping
-\* rules the code as found keeps calling the replicator with an EMPTY candidate list: a holder remembered from
-\* an earlier rule does not lower the shortage of a later rule - a phantom shortage that copies nothing.)
-Replicates(d) == \E k \in 1..Len(d.tasks) : Len(d.tasks[k].nodes) > 0
-Quiet(hs) == \A n \in hs : LET d == Decide27(n, hs, {}, {}) IN ~Replicates(d) /\ d.del = "none"
-NoTasks(hs) == \A n \in hs : ~Replicates(Decide27(n, hs, {}, {}))
- \* a check "replicates" when it hands the replicator a task with at least one candidate node. (With overlapping
-\* rules the code as found keeps calling the replicator with an EMPTY candidate list: a holder remembered from
-\* an earlier rule does not lower the shortage of a later rule - a phantom shortage that copies nothing.)
-Replicates(d) == \E k \in 1..Len(d.tasks) : Len(d.tasks[k].nodes) > 0
-Quiet(hs) == \A n \in hs : LET d == Decide27(n, hs, {}, {}) IN ~Replicates(d) /\ d.del = "none"
-NoTasks(hs) == \A n \in hs : ~Replicates(Decide27(n, hs, {}, {}))
- \* a check "replicates" when it hands the replicator a task with at least one candidate node. (With overlapping
-\* rules the code as found keeps calling the replicator with an EMPTY candidate list: a holder remembered from
-\* an earlier rule does not lower the shortage of a later rule - a phantom shortage that copies nothing.)
-Replicates(d) == \E k \in 1..Len(d.tasks) : Len(d.tasks[k].nodes) > 0
-Quiet(hs) == \A n \in hs : LET d == Decide27(n, hs, {}, {}) IN ~Replicates(d) /\ d.del = "none"
-NoTasks(hs) == \A n \in hs : ~Replicates(Decide27(n, hs, {}, {}))
- \* a check "replicates" when it hands the replicator a task with at least one candidate node. (With overlapping
-\* rules the code as found keeps calling the replicator with an EMPTY candidate list: a holder remembered from
-\* an earlier rule does not lower the shortage of a later rule - a phantom shortage that copies nothing.)
-Replicates(d) == \E k \in 1..Len(d.tasks) : Len(d.tasks[k].nodes) > 0
-Quiet(hs) == \A n \in hs : LET d == Decide27(n, hs, {}, {}) IN ~Replicates(d) /\ d.del = "none"
-NoTasks(hs) == \A n \in hs : ~Replicates(Decide27(n, hs, {}, {}))
-s\* a check "replicates" when it hands the replicator a task with at least one candidate node. (With overlapping
-\* rules the code as found keeps calling the replicator with an EMPTY candidate list: a holder remembered from
-\* an earlier rule does not lower the shortage of a later rule - a phantom shortage that copies nothing.)
-Replicates(d) == \E k \in 1..Len(d.tasks) : Len(d.tasks[k].nodes) > 0
-Quiet(hs) == \A n \in hs : LET d == Decide27(n, hs, {}, {}) IN ~Replicates(d) /\ d.del = "none"
-NoTasks(hs) == \A n \in hs : ~Replicates(Decide27(n, hs, {}, {}))
-t\* a check "replicates" when it hands the replicator a task with at least one candidate node. (With overlapping
-\* rules the code as found keeps calling the replicator with an EMPTY candidate list: a holder remembered from
-\* an earlier rule does not lower the shortage of a later rule - a phantom shortage that copies nothing.)
-Replicates(d) == \E k \in 1..Len(d.tasks) : Len(d.tasks[k].nodes) > 0
-Quiet(hs) == \A n \in hs : LET d == Decide27(n, hs, {}, {}) IN ~Replicates(d) /\ d.del = "none"
-NoTasks(hs) == \A n \in hs : ~Replicates(Decide27(n, hs, {}, {}))
-o\* a check "replicates" when it hands the replicator a task with at least one candidate node. (With overlapping
-\* rules the code as found keeps calling the replicator with an EMPTY candidate list: a holder remembered from
-\* an earlier rule does not lower the shortage of a later rule - a phantom shortage that copies nothing.)
-Replicates(d) == \E k \in 1..Len(d.tasks) : Len(d.tasks[k].nodes) > 0
-Quiet(hs) == \A n \in hs : LET d == Decide27(n, hs, {}, {}) IN ~Replicates(d) /\ d.del = "none"
-NoTasks(hs) == \A n \in hs : ~Replicates(Decide27(n, hs, {}, {}))
-r\* a check "replicates" when it hands the replicator a task with at least one candidate node. (With overlapping
-\* rules the code as found keeps calling the replicator with an EMPTY candidate list: a holder remembered from
-\* an earlier rule does not lower the shortage of a later rule - a phantom shortage that copies nothing.)
-Replicates(d) == \E k \in 1..Len(d.tasks) : Len(d.tasks[k].nodes) > 0
-Quiet(hs) == \A n \in hs : LET d == Decide27(n, hs, {}, {}) IN ~Replicates(d) /\ d.del = "none"
-NoTasks(hs) == \A n \in hs : ~Replicates(Decide27(n, hs, {}, {}))
-e\* a check "replicates" when it hands the replicator a task with at least one candidate node. (With overlapping
-\* rules the code as found keeps calling the replicator with an EMPTY candidate list: a holder remembered from
-\* an earlier rule does not lower the shortage of a later rule - a phantom shortage that copies nothing.)
-Replicates(d) == \E k \in 1..Len(d.tasks) : Len(d.tasks[k].nodes) > 0
-Quiet(hs) == \A n \in hs : LET d == Decide27(n, hs, {}, {}) IN ~Replicates(d) /\ d.del = "none"
-NoTasks(hs) == \A n \in hs : ~Replicates(Decide27(n, hs, {}, {}))
-d\* a check "replicates" when it hands the replicator a task with at least one candidate node. (With overlapping
-\* rules the code as found keeps calling the replicator with an EMPTY candidate list: a holder remembered from
-\* an earlier rule does not lower the shortage of a later rule - a phantom shortage that copies nothing.)
-Replicates(d) == \E k \in 1..Len(d.tasks) : Len(d.tasks[k].nodes) > 0
-Quiet(hs) == \A n \in hs : LET d == Decide27(n, hs, {}, {}) IN ~Replicates(d) /\ d.del = "none"
-NoTasks(hs) == \A n \in hs : ~Replicates(Decide27(n, hs, {}, {}))
- \* a check "replicates" when it hands the replicator a task with at least one candidate node. (With overlapping
-\* rules the code as found keeps calling the replicator with an EMPTY candidate list: a holder remembered from
-\* an earlier rule does not lower the shortage of a later rule - a phantom shortage that copies nothing.)
-Replicates(d) == \E k \in 1..Len(d.tasks) : Len(d.tasks[k].nodes) > 0
-Quiet(hs) == \A n \in hs : LET d == Decide27(n, hs, {}, {}) IN ~Replicates(d) /\ d.del = "none"
-NoTasks(hs) == \A n \in hs : ~Replicates(Decide27(n, hs, {}, {}))
-|\* a check "replicates" when it hands the replicator a task with at least one candidate node. (With overlapping
-\* rules the code as found keeps calling the replicator with an EMPTY candidate list: a holder remembered from
-\* an earlier rule does not lower the shortage of a later rule - a phantom shortage that copies nothing.)
-Replicates(d) == \E k \in 1..Len(d.tasks) : Len(d.tasks[k].nodes) > 0
-Quiet(hs) == \A n \in hs : LET d == Decide27(n, hs, {}, {}) IN ~Replicates(d) /\ d.del = "none"
-NoTasks(hs) == \A n \in hs : ~Replicates(Decide27(n, hs, {}, {}))
--\* a check "replicates" when it hands the replicator a task with at least one candidate node. (With overlapping
-\* rules the code as found keeps calling the replicator with an EMPTY candidate list: a holder remembered from
-\* an earlier rule does not lower the shortage of a later rule - a phantom shortage that copies nothing.)
-Replicates(d) == \E k \in 1..Len(d.tasks) : Len(d.tasks[k].nodes) > 0
-Quiet(hs) == \A n \in hs : LET d == Decide27(n, hs, {}, {}) IN ~Replicates(d) /\ d.del = "none"
-NoTasks(hs) == \A n \in hs : ~Replicates(Decide27(n, hs, {}, {}))
->\* a check "replicates" when it hands the replicator a task with at least one candidate node. (With overlapping
-\* rules the code as found keeps calling the replicator with an EMPTY candidate list: a holder remembered from
-\* an earlier rule does not lower the shortage of a later rule - a phantom shortage that copies nothing.)
-Replicates(d) == \E k \in 1..Len(d.tasks) : Len(d.tasks[k].nodes) > 0
-Quiet(hs) == \A n \in hs : LET d == Decide27(n, hs, {}, {}) IN ~Replicates(d) /\ d.del = "none"
-NoTasks(hs) == \A n \in hs : ~Replicates(Decide27(n, hs, {}, {}))
- \* a check "replicates" when it hands the replicator a task with at least one candidate node. (With overlapping
-\* rules the code as found keeps calling the replicator with an EMPTY candidate list: a holder remembered from
-\* an earlier rule does not lower the shortage of a later rule - a phantom shortage that copies nothing.)
-Replicates(d) == \E k \in 1..Len(d.tasks) : Len(d.tasks[k].nodes) > 0
-Quiet(hs) == \A n \in hs : LET d == Decide27(n, hs, {}, {}) IN ~Replicates(d) /\ d.del = "none"
-NoTasks(hs) == \A n \in hs : ~Replicates(Decide27(n, hs, {}, {}))
-R\* a check "replicates" when it hands the replicator a task with at least one candidate node. (With overlapping
-\* rules the code as found keeps calling the replicator with an EMPTY candidate list: a holder remembered from
-\* an earlier rule does not lower the shortage of a later rule - a phantom shortage that copies nothing.)
-Replicates(d) == \E k \in 1..Len(d.tasks) : Len(d.tasks[k].nodes) > 0
-Quiet(hs) == \A n \in hs : LET d == Decide27(n, hs, {}, {}) IN ~Replicates(d) /\ d.del = "none"
-NoTasks(hs) == \A n \in hs : ~Replicates(Decide27(n, hs, {}, {}))
-a\* a check "replicates" when it hands the replicator a task with at least one candidate node. (With overlapping
-\* rules the code as found keeps calling the replicator with an EMPTY candidate list: a holder remembered from
-\* an earlier rule does not lower the shortage of a later rule - a phantom shortage that copies nothing.)
-Replicates(d) == \E k \in 1..Len(d.tasks) : Len(d.tasks[k].nodes) > 0
-Quiet(hs) == \A n \in hs : LET d == Decide27(n, hs, {}, {}) IN ~Replicates(d) /\ d.del = "none"
-NoTasks(hs) == \A n \in hs : ~Replicates(Decide27(n, hs, {}, {}))
-n\* a check "replicates" when it hands the replicator a task with at least one candidate node. (With overlapping
-\* rules the code as found keeps calling the replicator with an EMPTY candidate list: a holder remembered from
-\* an earlier rule does not lower the shortage of a later rule - a phantom shortage that copies nothing.)
-Replicates(d) == \E k \in 1..Len(d.tasks) : Len(d.tasks[k].nodes) > 0
-Quiet(hs) == \A n \in hs : LET d == Decide27(n, hs, {}, {}) IN ~Replicates(d) /\ d.del = "none"
-NoTasks(hs) == \A n \in hs : ~Replicates(Decide27(n, hs, {}, {}))
-g\* a check "replicates" when it hands the replicator a task with at least one candidate node. (With overlapping
-\* rules the code as found keeps calling the replicator with an EMPTY candidate list: a holder remembered from
-\* an earlier rule does not lower the shortage of a later rule - a phantom shortage that copies nothing.)
-Replicates(d) == \E k \in 1..Len(d.tasks) : Len(d.tasks[k].nodes) > 0
-Quiet(hs) == \A n \in hs : LET d == Decide27(n, hs, {}, {}) IN ~Replicates(d) /\ d.del = "none"
-NoTasks(hs) == \A n \in hs : ~Replicates(Decide27(n, hs, {}, {}))
-e\* a check "replicates" when it hands the replicator a task with at least one candidate node. (With overlapping
-\* rules the code as found keeps calling the replicator with an EMPTY candidate list: a holder remembered from
-\* an earlier rule does not lower the shortage of a later rule - a phantom shortage that copies nothing.)
-Replicates(d) == \E k \in 1..Len(d.tasks) : Len(d.tasks[k].nodes) > 0
-Quiet(hs) == \A n \in hs : LET d == Decide27(n, hs, {}, {}) IN ~Replicates(d) /\ d.del = "none"
-NoTasks(hs) == \A n \in hs : ~Replicates(Decide27(n, hs, {}, {}))
-(\* a check "replicates" when it hands the replicator a task with at least one candidate node. (With overlapping
-\* rules the code as found keeps calling the replicator with an EMPTY candidate list: a holder remembered from
-\* an earlier rule does not lower the shortage of a later rule - a phantom shortage that copies nothing.)
-Replicates(d) == \E k \in 1..Len(d.tasks) : Len(d.tasks[k].nodes) > 0
-Quiet(hs) == \A n \in hs : LET d == Decide27(n, hs, {}, {}) IN ~Replicates(d) /\ d.del = "none"
-NoTasks(hs) == \A n \in hs : ~Replicates(Decide27(n, hs, {}, {}))
-o\* a check "replicates" when it hands the replicator a task with at least one candidate node. (With overlapping
-\* rules the code as found keeps calling the replicator with an EMPTY candidate list: a holder remembered from
-\* an earlier rule does not lower the shortage of a later rule - a phantom shortage that copies nothing.)
-Replicates(d) == \E k \in 1..Len(d.tasks) : Len(d.tasks[k].nodes) > 0
-Quiet(hs) == \A n \in hs : LET d == Decide27(n, hs, {}, {}) IN ~Replicates(d) /\ d.del = "none"
-NoTasks(hs) == \A n \in hs : ~Replicates(Decide27(n, hs, {}, {}))
-k\* a check "replicates" when it hands the replicator a task with at least one candidate node. (With overlapping
-\* rules the code as found keeps calling the replicator with an EMPTY candidate list: a holder remembered from
-\* an earlier rule does not lower the shortage of a later rule - a phantom shortage that copies nothing.)
-Replicates(d) == \E k \in 1..Len(d.tasks) : Len(d.tasks[k].nodes) > 0
-Quiet(hs) == \A n \in hs : LET d == Decide27(n, hs, {}, {}) IN ~Replicates(d) /\ d.del = "none"
-NoTasks(hs) == \A n \in hs : ~Replicates(Decide27(n, hs, {}, {}))
-)\* a check "replicates" when it hands the replicator a task with at least one candidate node. (With overlapping
-\* rules the code as found keeps calling the replicator with an EMPTY candidate list: a holder remembered from
-\* an earlier rule does not lower the shortage of a later rule - a phantom shortage that copies nothing.)
-Replicates(d) == \E k \in 1..Len(d.tasks) : Len(d.tasks[k].nodes) > 0
-Quiet(hs) == \A n \in hs : LET d == Decide27(n, hs, {}, {}) IN ~Replicates(d) /\ d.del = "none"
-NoTasks(hs) == \A n \in hs : ~Replicates(Decide27(n, hs, {}, {}))
-]\* a check "replicates" when it hands the replicator a task with at least one candidate node. (With overlapping
-\* rules the code as found keeps calling the replicator with an EMPTY candidate list: a holder remembered from
-\* an earlier rule does not lower the shortage of a later rule - a phantom shortage that copies nothing.)
-Replicates(d) == \E k \in 1..Len(d.tasks) : Len(d.tasks[k].nodes) > 0
-Quiet(hs) == \A n \in hs : LET d == Decide27(n, hs, {}, {}) IN ~Replicates(d) /\ d.del = "none"
-NoTasks(hs) == \A n \in hs : ~Replicates(Decide27(n, hs, {}, {}))
-
-\* a check "replicates" when it hands the replicator a task with at least one candidate node. (With overlapping
-\* rules the code as found keeps calling the replicator with an EMPTY candidate list: a holder remembered from
-\* an earlier rule does not lower the shortage of a later rule - a phantom shortage that copies nothing.)
-Replicates(d) == \E k \in 1..Len(d.tasks) : Len(d.tasks[k].nodes) > 0
-Quiet(hs) == \A n \in hs : LET d == Decide27(n, hs, {}, {}) IN ~Replicates(d) /\ d.del = "none"
-NoTasks(hs) == \A n \in hs : ~Replicates(Decide27(n, hs, {}, {}))
- \* a check "replicates" when it hands the replicator a task with at least one candidate node. (With overlapping
-\* rules the code as found keeps calling the replicator with an EMPTY candidate list: a holder remembered from
-\* an earlier rule does not lower the shortage of a later rule - a phantom shortage that copies nothing.)
-Replicates(d) == \E k \in 1..Len(d.tasks) : Len(d.tasks[k].nodes) > 0
-Quiet(hs) == \A n \in hs : LET d == Decide27(n, hs, {}, {}) IN ~Replicates(d) /\ d.del = "none"
-NoTasks(hs) == \A n \in hs : ~Replicates(Decide27(n, hs, {}, {}))
- \* a check "replicates" when it hands the replicator a task with at least one candidate node. (With overlapping
-\* rules the code as found keeps calling the replicator with an EMPTY candidate list: a holder remembered from
-\* an earlier rule does not lower the shortage of a later rule - a phantom shortage that copies nothing.)
-Replicates(d) == \E k \in 1..Len(d.tasks) : Len(d.tasks[k].nodes) > 0
-Quiet(hs) == \A n \in hs : LET d == Decide27(n, hs, {}, {}) IN ~Replicates(d) /\ d.del = "none"
-NoTasks(hs) == \A n \in hs : ~Replicates(Decide27(n, hs, {}, {}))
- \* a check "replicates" when it hands the replicator a task with at least one candidate node. (With overlapping
-\* rules the code as found keeps calling the replicator with an EMPTY candidate list: a holder remembered from
-\* an earlier rule does not lower the shortage of a later rule - a phantom shortage that copies nothing.)
-Replicates(d) == \E k \in 1..Len(d.tasks) : Len(d.tasks[k].nodes) > 0
-Quiet(hs) == \A n \in hs : LET d == Decide27(n, hs, {}, {}) IN ~Replicates(d) /\ d.del = "none"
-NoTasks(hs) == \A n \in hs : ~Replicates(Decide27(n, hs, {}, {}))
- \* a check "replicates" when it hands the replicator a task with at least one candidate node. (With overlapping
-\* rules the code as found keeps calling the replicator with an EMPTY candidate list: a holder remembered from
-\* an earlier rule does not lower the shortage of a later rule - a phantom shortage that copies nothing.)
-Replicates(d) == \E k \in 1..Len(d.tasks) : Len(d.tasks[k].nodes) > 0
-Quiet(hs) == \A n \in hs : LET d == Decide27(n, hs, {}, {}) IN ~Replicates(d) /\ d.del = "none"
-NoTasks(hs) == \A n \in hs : ~Replicates(Decide27(n, hs, {}, {}))
- \* a check "replicates" when it hands the replicator a task with at least one candidate node. (With overlapping
-\* rules the code as found keeps calling the replicator with an EMPTY candidate list: a holder remembered from
-\* an earlier rule does not lower the shortage of a later rule - a phantom shortage that copies nothing.)
-Replicates(d) == \E k \in 1..Len(d.tasks) : Len(d.tasks[k].nodes) > 0
-Quiet(hs) == \A n \in hs : LET d == Decide27(n, hs, {}, {}) IN ~Replicates(d) /\ d.del = "none"
-NoTasks(hs) == \A n \in hs : ~Replicates(Decide27(n, hs, {}, {}))
- \* a check "replicates" when it hands the replicator a task with at least one candidate node. (With overlapping
-\* rules the code as found keeps calling the replicator with an EMPTY candidate list: a holder remembered from
-\* an earlier rule does not lower the shortage of a later rule - a phantom shortage that copies nothing.)
-Replicates(d) == \E k \in 1..Len(d.tasks) : Len(d.tasks[k].nodes) > 0
-Quiet(hs) == \A n \in hs : LET d == Decide27(n, hs, {}, {}) IN ~Replicates(d) /\ d.del = "none"
-NoTasks(hs) == \A n \in hs : ~Replicates(Decide27(n, hs, {}, {}))
- \* a check "replicates" when it hands the replicator a task with at least one candidate node. (With overlapping
-\* rules the code as found keeps calling the replicator with an EMPTY candidate list: a holder remembered from
-\* an earlier rule does not lower the shortage of a later rule - a phantom shortage that copies nothing.)
-Replicates(d) == \E k \in 1..Len(d.tasks) : Len(d.tasks[k].nodes) > 0
-Quiet(hs) == \A n \in hs : LET d == Decide27(n, hs, {}, {}) IN ~Replicates(d) /\ d.del = "none"
-NoTasks(hs) == \A n \in hs : ~Replicates(Decide27(n, hs, {}, {}))
-/\* a check "replicates" when it hands the replicator a task with at least one candidate node. (With overlapping
-\* rules the code as found keeps calling the replicator with an EMPTY candidate list: a holder remembered from
-\* an earlier rule does not lower the shortage of a later rule - a phantom shortage that copies nothing.)
-Replicates(d) == \E k \in 1..Len(d.tasks) : Len(d.tasks[k].nodes) > 0
-Quiet(hs) == \A n \in hs : LET d == Decide27(n, hs, {}, {}) IN ~Replicates(d) /\ d.del = "none"
-NoTasks(hs) == \A n \in hs : ~Replicates(Decide27(n, hs, {}, {}))
-\\* a check "replicates" when it hands the replicator a task with at least one candidate node. (With overlapping
-\* rules the code as found keeps calling the replicator with an EMPTY candidate list: a holder remembered from
-\* an earlier rule does not lower the shortage of a later rule - a phantom shortage that copies nothing.)
-Replicates(d) == \E k \in 1..Len(d.tasks) : Len(d.tasks[k].nodes) > 0
-Quiet(hs) == \A n \in hs : LET d == Decide27(n, hs, {}, {}) IN ~Replicates(d) /\ d.del = "none"
-NoTasks(hs) == \A n \in hs : ~Replicates(Decide27(n, hs, {}, {}))
- \* a check "replicates" when it hands the replicator a task with at least one candidate node. (With overlapping
-\* rules the code as found keeps calling the replicator with an EMPTY candidate list: a holder remembered from
-\* an earlier rule does not lower the shortage of a later rule - a phantom shortage that copies nothing.)
-Replicates(d) == \E k \in 1..Len(d.tasks) : Len(d.tasks[k].nodes) > 0
-Quiet(hs) == \A n \in hs : LET d == Decide27(n, hs, {}, {}) IN ~Replicates(d) /\ d.del = "none"
-NoTasks(hs) == \A n \in hs : ~Replicates(Decide27(n, hs, {}, {}))
-h\* a check "replicates" when it hands the replicator a task with at least one candidate node. (With overlapping
-\* rules the code as found keeps calling the replicator with an EMPTY candidate list: a holder remembered from
-\* an earlier rule does not lower the shortage of a later rule - a phantom shortage that copies nothing.)
-Replicates(d) == \E k \in 1..Len(d.tasks) : Len(d.tasks[k].nodes) > 0
-Quiet(hs) == \A n \in hs : LET d == Decide27(n, hs, {}, {}) IN ~Replicates(d) /\ d.del = "none"
-NoTasks(hs) == \A n \in hs : ~Replicates(Decide27(n, hs, {}, {}))
-o\* a check "replicates" when it hands the replicator a task with at least one candidate node. (With overlapping
-\* rules the code as found keeps calling the replicator with an EMPTY candidate list: a holder remembered from
-\* an earlier rule does not lower the shortage of a later rule - a phantom shortage that copies nothing.)
-Replicates(d) == \E k \in 1..Len(d.tasks) : Len(d.tasks[k].nodes) > 0
-Quiet(hs) == \A n \in hs : LET d == Decide27(n, hs, {}, {}) IN ~Replicates(d) /\ d.del = "none"
-NoTasks(hs) == \A n \in hs : ~Replicates(Decide27(n, hs, {}, {}))
-l\* a check "replicates" when it hands the replicator a task with at least one candidate node. (With overlapping
-\* rules the code as found keeps calling the replicator with an EMPTY candidate list: a holder remembered from
-\* an earlier rule does not lower the shortage of a later rule - a phantom shortage that copies nothing.)
-Replicates(d) == \E k \in 1..Len(d.tasks) : Len(d.tasks[k].nodes) > 0
-Quiet(hs) == \A n \in hs : LET d == Decide27(n, hs, {}, {}) IN ~Replicates(d) /\ d.del = "none"
-NoTasks(hs) == \A n \in hs : ~Replicates(Decide27(n, hs, {}, {}))
-d\* a check "replicates" when it hands the replicator a task with at least one candidate node. (With overlapping
-\* rules the code as found keeps calling the replicator with an EMPTY candidate list: a holder remembered from
-\* an earlier rule does not lower the shortage of a later rule - a phantom shortage that copies nothing.)
-Replicates(d) == \E k \in 1..Len(d.tasks) : Len(d.tasks[k].nodes) > 0
-Quiet(hs) == \A n \in hs : LET d == Decide27(n, hs, {}, {}) IN ~Replicates(d) /\ d.del = "none"
-NoTasks(hs) == \A n \in hs : ~Replicates(Decide27(n, hs, {}, {}))
-e\* a check "replicates" when it hands the replicator a task with at least one candidate node. (With overlapping
-\* rules the code as found keeps calling the replicator with an EMPTY candidate list: a holder remembered from
-\* an earlier rule does not lower the shortage of a later rule - a phantom shortage that copies nothing.)
-Replicates(d) == \E k \in 1..Len(d.tasks) : Len(d.tasks[k].nodes) > 0
-Quiet(hs) == \A n \in hs : LET d == Decide27(n, hs, {}, {}) IN ~Replicates(d) /\ d.del = "none"
-NoTasks(hs) == \A n \in hs : ~Replicates(Decide27(n, hs, {}, {}))
-r\* a check "replicates" when it hands the replicator a task with at least one candidate node. (With overlapping
-\* rules the code as found keeps calling the replicator with an EMPTY candidate list: a holder remembered from
-\* an earlier rule does not lower the shortage of a later rule - a phantom shortage that copies nothing.)
-Replicates(d) == \E k \in 1..Len(d.tasks) : Len(d.tasks[k].nodes) > 0
-Quiet(hs) == \A n \in hs : LET d == Decide27(n, hs, {}, {}) IN ~Replicates(d) /\ d.del = "none"
-NoTasks(hs) == \A n \in hs : ~Replicates(Decide27(n, hs, {}, {}))
-s\* a check "replicates" when it hands the replicator a task with at least one candidate node. (With overlapping
-\* rules the code as found keeps calling the replicator with an EMPTY candidate list: a holder remembered from
-\* an earlier rule does not lower the shortage of a later rule - a phantom shortage that copies nothing.)
-Replicates(d) == \E k \in 1..Len(d.tasks) : Len(d.tasks[k].nodes) > 0
-Quiet(hs) == \A n \in hs : LET d == Decide27(n, hs, {}, {}) IN ~Replicates(d) /\ d.del = "none"
-NoTasks(hs) == \A n \in hs : ~Replicates(Decide27(n, hs, {}, {}))
-'\* a check "replicates" when it hands the replicator a task with at least one candidate node. (With overlapping
-\* rules the code as found keeps calling the replicator with an EMPTY candidate list: a holder remembered from
-\* an earlier rule does not lower the shortage of a later rule - a phantom shortage that copies nothing.)
-Replicates(d) == \E k \in 1..Len(d.tasks) : Len(d.tasks[k].nodes) > 0
-Quiet(hs) == \A n \in hs : LET d == Decide27(n, hs, {}, {}) IN ~Replicates(d) /\ d.del = "none"
-NoTasks(hs) == \A n \in hs : ~Replicates(Decide27(n, hs, {}, {}))
- \* a check "replicates" when it hands the replicator a task with at least one candidate node. (With overlapping
-\* rules the code as found keeps calling the replicator with an EMPTY candidate list: a holder remembered from
-\* an earlier rule does not lower the shortage of a later rule - a phantom shortage that copies nothing.)
-Replicates(d) == \E k \in 1..Len(d.tasks) : Len(d.tasks[k].nodes) > 0
-Quiet(hs) == \A n \in hs : LET d == Decide27(n, hs, {}, {}) IN ~Replicates(d) /\ d.del = "none"
-NoTasks(hs) == \A n \in hs : ~Replicates(Decide27(n, hs, {}, {}))
-=\* a check "replicates" when it hands the replicator a task with at least one candidate node. (With overlapping
-\* rules the code as found keeps calling the replicator with an EMPTY candidate list: a holder remembered from
-\* an earlier rule does not lower the shortage of a later rule - a phantom shortage that copies nothing.)
-Replicates(d) == \E k \in 1..Len(d.tasks) : Len(d.tasks[k].nodes) > 0
-Quiet(hs) == \A n \in hs : LET d == Decide27(n, hs, {}, {}) IN ~Replicates(d) /\ d.del = "none"
-NoTasks(hs) == \A n \in hs : ~Replicates(Decide27(n, hs, {}, {}))
- \* a check "replicates" when it hands the replicator a task with at least one candidate node. (With overlapping
-\* rules the code as found keeps calling the replicator with an EMPTY candidate list: a holder remembered from
-\* an earlier rule does not lower the shortage of a later rule - a phantom shortage that copies nothing.)
-Replicates(d) == \E k \in 1..Len(d.tasks) : Len(d.tasks[k].nodes) > 0
-Quiet(hs) == \A n \in hs : LET d == Decide27(n, hs, {}, {}) IN ~Replicates(d) /\ d.del = "none"
-NoTasks(hs) == \A n \in hs : ~Replicates(Decide27(n, hs, {}, {}))
-h\* a check "replicates" when it hands the replicator a task with at least one candidate node. (With overlapping
-\* rules the code as found keeps calling the replicator with an EMPTY candidate list: a holder remembered from
-\* an earlier rule does not lower the shortage of a later rule - a phantom shortage that copies nothing.)
-Replicates(d) == \E k \in 1..Len(d.tasks) : Len(d.tasks[k].nodes) > 0
-Quiet(hs) == \A n \in hs : LET d == Decide27(n, hs, {}, {}) IN ~Replicates(d) /\ d.del = "none"
-NoTasks(hs) == \A n \in hs : ~Replicates(Decide27(n, hs, {}, {}))
-o\* a check "replicates" when it hands the replicator a task with at least one candidate node. (With overlapping
-\* rules the code as found keeps calling the replicator with an EMPTY candidate list: a holder remembered from
-\* an earlier rule does not lower the shortage of a later rule - a phantom shortage that copies nothing.)
-Replicates(d) == \E k \in 1..Len(d.tasks) : Len(d.tasks[k].nodes) > 0
-Quiet(hs) == \A n \in hs : LET d == Decide27(n, hs, {}, {}) IN ~Replicates(d) /\ d.del = "none"
-NoTasks(hs) == \A n \in hs : ~Replicates(Decide27(n, hs, {}, {}))
-l\* a check "replicates" when it hands the replicator a task with at least one candidate node. (With overlapping
-\* rules the code as found keeps calling the replicator with an EMPTY candidate list: a holder remembered from
-\* an earlier rule does not lower the shortage of a later rule - a phantom shortage that copies nothing.)
-Replicates(d) == \E k \in 1..Len(d.tasks) : Len(d.tasks[k].nodes) > 0
-Quiet(hs) == \A n \in hs : LET d == Decide27(n, hs, {}, {}) IN ~Replicates(d) /\ d.del = "none"
-NoTasks(hs) == \A n \in hs : ~Replicates(Decide27(n, hs, {}, {}))
-d\* a check "replicates" when it hands the replicator a task with at least one candidate node. (With overlapping
-\* rules the code as found keeps calling the replicator with an EMPTY candidate list: a holder remembered from
-\* an earlier rule does not lower the shortage of a later rule - a phantom shortage that copies nothing.)
-Replicates(d) == \E k \in 1..Len(d.tasks) : Len(d.tasks[k].nodes) > 0
-Quiet(hs) == \A n \in hs : LET d == Decide27(n, hs, {}, {}) IN ~Replicates(d) /\ d.del = "none"
-NoTasks(hs) == \A n \in hs : ~Replicates(Decide27(n, hs, {}, {}))
-e\* a check "replicates" when it hands the replicator a task with at least one candidate node. (With overlapping
-\* rules the code as found keeps calling the replicator with an EMPTY candidate list: a holder remembered from
-\* an earlier rule does not lower the shortage of a later rule - a phantom shortage that copies nothing.)
-Replicates(d) == \E k \in 1..Len(d.tasks) : Len(d.tasks[k].nodes) > 0
-Quiet(hs) == \A n \in hs : LET d == Decide27(n, hs, {}, {}) IN ~Replicates(d) /\ d.del = "none"
-NoTasks(hs) == \A n \in hs : ~Replicates(Decide27(n, hs, {}, {}))
-r\* a check "replicates" when it hands the replicator a task with at least one candidate node. (With overlapping
-\* rules the code as found keeps calling the replicator with an EMPTY candidate list: a holder remembered from
-\* an earlier rule does not lower the shortage of a later rule - a phantom shortage that copies nothing.)
-Replicates(d) == \E k \in 1..Len(d.tasks) : Len(d.tasks[k].nodes) > 0
-Quiet(hs) == \A n \in hs : LET d == Decide27(n, hs, {}, {}) IN ~Replicates(d) /\ d.del = "none"
-NoTasks(hs) == \A n \in hs : ~Replicates(Decide27(n, hs, {}, {}))
-s\* a check "replicates" when it hands the replicator a task with at least one candidate node. (With overlapping
-\* rules the code as found keeps calling the replicator with an EMPTY candidate list: a holder remembered from
-\* an earlier rule does not lower the shortage of a later rule - a phantom shortage that copies nothing.)
-Replicates(d) == \E k \in 1..Len(d.tasks) : Len(d.tasks[k].nodes) > 0
-Quiet(hs) == \A n \in hs : LET d == Decide27(n, hs, {}, {}) IN ~Replicates(d) /\ d.del = "none"
-NoTasks(hs) == \A n \in hs : ~Replicates(Decide27(n, hs, {}, {}))
- \* a check "replicates" when it hands the replicator a task with at least one candidate node. (With overlapping
-\* rules the code as found keeps calling the replicator with an EMPTY candidate list: a holder remembered from
-\* an earlier rule does not lower the shortage of a later rule - a phantom shortage that copies nothing.)
-Replicates(d) == \E k \in 1..Len(d.tasks) : Len(d.tasks[k].nodes) > 0
-Quiet(hs) == \A n \in hs : LET d == Decide27(n, hs, {}, {}) IN ~Replicates(d) /\ d.del = "none"
-NoTasks(hs) == \A n \in hs : ~Replicates(Decide27(n, hs, {}, {}))
-\\* a check "replicates" when it hands the replicator a task with at least one candidate node. (With overlapping
-\* rules the code as found keeps calling the replicator with an EMPTY candidate list: a holder remembered from
-\* an earlier rule does not lower the shortage of a later rule - a phantom shortage that copies nothing.)
-Replicates(d) == \E k \in 1..Len(d.tasks) : Len(d.tasks[k].nodes) > 0
-Quiet(hs) == \A n \in hs : LET d == Decide27(n, hs, {}, {}) IN ~Replicates(d) /\ d.del = "none"
-NoTasks(hs) == \A n \in hs : ~Replicates(Decide27(n, hs, {}, {}))
-c\* a check "replicates" when it hands the replicator a task with at least one candidate node. (With overlapping
-\* rules the code as found keeps calling the replicator with an EMPTY candidate list: a holder remembered from
-\* an earlier rule does not lower the shortage of a later rule - a phantom shortage that copies nothing.)
-Replicates(d) == \E k \in 1..Len(d.tasks) : Len(d.tasks[k].nodes) > 0
-Quiet(hs) == \A n \in hs : LET d == Decide27(n, hs, {}, {}) IN ~Replicates(d) /\ d.del = "none"
-NoTasks(hs) == \A n \in hs : ~Replicates(Decide27(n, hs, {}, {}))
-u\* a check "replicates" when it hands the replicator a task with at least one candidate node. (With overlapping
-\* rules the code as found keeps calling the replicator with an EMPTY candidate list: a holder remembered from
-\* an earlier rule does not lower the shortage of a later rule - a phantom shortage that copies nothing.)
-Replicates(d) == \E k \in 1..Len(d.tasks) : Len(d.tasks[k].nodes) > 0
-Quiet(hs) == \A n \in hs : LET d == Decide27(n, hs, {}, {}) IN ~Replicates(d) /\ d.del = "none"
-NoTasks(hs) == \A n \in hs : ~Replicates(Decide27(n, hs, {}, {}))
-p\* a check "replicates" when it hands the replicator a task with at least one candidate node. (With overlapping
-\* rules the code as found keeps calling the replicator with an EMPTY candidate list: a holder remembered from
-\* an earlier rule does not lower the shortage of a later rule - a phantom shortage that copies nothing.)
-Replicates(d) == \E k \in 1..Len(d.tasks) : Len(d.tasks[k].nodes) > 0
-Quiet(hs) == \A n \in hs : LET d == Decide27(n, hs, {}, {}) IN ~Replicates(d) /\ d.del = "none"
-NoTasks(hs) == \A n \in hs : ~Replicates(Decide27(n, hs, {}, {}))
- \* a check "replicates" when it hands the replicator a task with at least one candidate node. (With overlapping
-\* rules the code as found keeps calling the replicator with an EMPTY candidate list: a holder remembered from
-\* an earlier rule does not lower the shortage of a later rule - a phantom shortage that copies nothing.)
-Replicates(d) == \E k \in 1..Len(d.tasks) : Len(d.tasks[k].nodes) > 0
-Quiet(hs) == \A n \in hs : LET d == Decide27(n, hs, {}, {}) IN ~Replicates(d) /\ d.del = "none"
-NoTasks(hs) == \A n \in hs : ~Replicates(Decide27(n, hs, {}, {}))
-R\* a check "replicates" when it hands the replicator a task with at least one candidate node. (With overlapping
-\* rules the code as found keeps calling the replicator with an EMPTY candidate list: a holder remembered from
-\* an earlier rule does not lower the shortage of a later rule - a phantom shortage that copies nothing.)
-Replicates(d) == \E k \in 1..Len(d.tasks) : Len(d.tasks[k].nodes) > 0
-Quiet(hs) == \A n \in hs : LET d == Decide27(n, hs, {}, {}) IN ~Replicates(d) /\ d.del = "none"
-NoTasks(hs) == \A n \in hs : ~Replicates(Decide27(n, hs, {}, {}))
-a\* a check "replicates" when it hands the replicator a task with at least one candidate node. (With overlapping
-\* rules the code as found keeps calling the replicator with an EMPTY candidate list: a holder remembered from
-\* an earlier rule does not lower the shortage of a later rule - a phantom shortage that copies nothing.)
-Replicates(d) == \E k \in 1..Len(d.tasks) : Len(d.tasks[k].nodes) > 0
-Quiet(hs) == \A n \in hs : LET d == Decide27(n, hs, {}, {}) IN ~Replicates(d) /\ d.del = "none"
-NoTasks(hs) == \A n \in hs : ~Replicates(Decide27(n, hs, {}, {}))
-n\* a check "replicates" when it hands the replicator a task with at least one candidate node. (With overlapping
-\* rules the code as found keeps calling the replicator with an EMPTY candidate list: a holder remembered from
-\* an earlier rule does not lower the shortage of a later rule - a phantom shortage that copies nothing.)
-Replicates(d) == \E k \in 1..Len(d.tasks) : Len(d.tasks[k].nodes) > 0
-Quiet(hs) == \A n \in hs : LET d == Decide27(n, hs, {}, {}) IN ~Replicates(d) /\ d.del = "none"
-NoTasks(hs) == \A n \in hs : ~Replicates(Decide27(n, hs, {}, {}))
-g\* a check "replicates" when it hands the replicator a task with at least one candidate node. (With overlapping
-\* rules the code as found keeps calling the replicator with an EMPTY candidate list: a holder remembered from
-\* an earlier rule does not lower the shortage of a later rule - a phantom shortage that copies nothing.)
-Replicates(d) == \E k \in 1..Len(d.tasks) : Len(d.tasks[k].nodes) > 0
-Quiet(hs) == \A n \in hs : LET d == Decide27(n, hs, {}, {}) IN ~Replicates(d) /\ d.del = "none"
-NoTasks(hs) == \A n \in hs : ~Replicates(Decide27(n, hs, {}, {}))
-e\* a check "replicates" when it hands the replicator a task with at least one candidate node. (With overlapping
-\* rules the code as found keeps calling the replicator with an EMPTY candidate list: a holder remembered from
-\* an earlier rule does not lower the shortage of a later rule - a phantom shortage that copies nothing.)
-Replicates(d) == \E k \in 1..Len(d.tasks) : Len(d.tasks[k].nodes) > 0
-Quiet(hs) == \A n \in hs : LET d == Decide27(n, hs, {}, {}) IN ~Replicates(d) /\ d.del = "none"
-NoTasks(hs) == \A n \in hs : ~Replicates(Decide27(n, hs, {}, {}))
-(\* a check "replicates" when it hands the replicator a task with at least one candidate node. (With overlapping
-\* rules the code as found keeps calling the replicator with an EMPTY candidate list: a holder remembered from
-\* an earlier rule does not lower the shortage of a later rule - a phantom shortage that copies nothing.)
-Replicates(d) == \E k \in 1..Len(d.tasks) : Len(d.tasks[k].nodes) > 0
-Quiet(hs) == \A n \in hs : LET d == Decide27(n, hs, {}, {}) IN ~Replicates(d) /\ d.del = "none"
-NoTasks(hs) == \A n \in hs : ~Replicates(Decide27(n, hs, {}, {}))
-o\* a check "replicates" when it hands the replicator a task with at least one candidate node. (With overlapping
-\* rules the code as found keeps calling the replicator with an EMPTY candidate list: a holder remembered from
-\* an earlier rule does not lower the shortage of a later rule - a phantom shortage that copies nothing.)
-Replicates(d) == \E k \in 1..Len(d.tasks) : Len(d.tasks[k].nodes) > 0
-Quiet(hs) == \A n \in hs : LET d == Decide27(n, hs, {}, {}) IN ~Replicates(d) /\ d.del = "none"
-NoTasks(hs) == \A n \in hs : ~Replicates(Decide27(n, hs, {}, {}))
-k\* a check "replicates" when it hands the replicator a task with at least one candidate node. (With overlapping
-\* rules the code as found keeps calling the replicator with an EMPTY candidate list: a holder remembered from
-\* an earlier rule does not lower the shortage of a later rule - a phantom shortage that copies nothing.)
-Replicates(d) == \E k \in 1..Len(d.tasks) : Len(d.tasks[k].nodes) > 0
-Quiet(hs) == \A n \in hs : LET d == Decide27(n, hs, {}, {}) IN ~Replicates(d) /\ d.del = "none"
-NoTasks(hs) == \A n \in hs : ~Replicates(Decide27(n, hs, {}, {}))
-)\* a check "replicates" when it hands the replicator a task with at least one candidate node. (With overlapping
-\* rules the code as found keeps calling the replicator with an EMPTY candidate list: a holder remembered from
-\* an earlier rule does not lower the shortage of a later rule - a phantom shortage that copies nothing.)
-Replicates(d) == \E k \in 1..Len(d.tasks) : Len(d.tasks[k].nodes) > 0
-Quiet(hs) == \A n \in hs : LET d == Decide27(n, hs, {}, {}) IN ~Replicates(d) /\ d.del = "none"
-NoTasks(hs) == \A n \in hs : ~Replicates(Decide27(n, hs, {}, {}))
-
-\* a check "replicates" when it hands the replicator a task with at least one candidate node. (With overlapping
-\* rules the code as found keeps calling the replicator with an EMPTY candidate list: a holder remembered from
-\* an earlier rule does not lower the shortage of a later rule - a phantom shortage that copies nothing.)
-Replicates(d) == \E k \in 1..Len(d.tasks) : Len(d.tasks[k].nodes) > 0
-Quiet(hs) == \A n \in hs : LET d == Decide27(n, hs, {}, {}) IN ~Replicates(d) /\ d.del = "none"
-NoTasks(hs) == \A n \in hs : ~Replicates(Decide27(n, hs, {}, {}))
- \* a check "replicates" when it hands the replicator a task with at least one candidate node. (With overlapping
-\* rules the code as found keeps calling the replicator with an EMPTY candidate list: a holder remembered from
-\* an earlier rule does not lower the shortage of a later rule - a phantom shortage that copies nothing.)
-Replicates(d) == \E k \in 1..Len(d.tasks) : Len(d.tasks[k].nodes) > 0
-Quiet(hs) == \A n \in hs : LET d == Decide27(n, hs, {}, {}) IN ~Replicates(d) /\ d.del = "none"
-NoTasks(hs) == \A n \in hs : ~Replicates(Decide27(n, hs, {}, {}))
- \* a check "replicates" when it hands the replicator a task with at least one candidate node. (With overlapping
-\* rules the code as found keeps calling the replicator with an EMPTY candidate list: a holder remembered from
-\* an earlier rule does not lower the shortage of a later rule - a phantom shortage that copies nothing.)
-Replicates(d) == \E k \in 1..Len(d.tasks) : Len(d.tasks[k].nodes) > 0
-Quiet(hs) == \A n \in hs : LET d == Decide27(n, hs, {}, {}) IN ~Replicates(d) /\ d.del = "none"
-NoTasks(hs) == \A n \in hs : ~Replicates(Decide27(n, hs, {}, {}))
-/\* a check "replicates" when it hands the replicator a task with at least one candidate node. (With overlapping
-\* rules the code as found keeps calling the replicator with an EMPTY candidate list: a holder remembered from
-\* an earlier rule does not lower the shortage of a later rule - a phantom shortage that copies nothing.)
-Replicates(d) == \E k \in 1..Len(d.tasks) : Len(d.tasks[k].nodes) > 0
-Quiet(hs) == \A n \in hs : LET d == Decide27(n, hs, {}, {}) IN ~Replicates(d) /\ d.del = "none"
-NoTasks(hs) == \A n \in hs : ~Replicates(Decide27(n, hs, {}, {}))
-\\* a check "replicates" when it hands the replicator a task with at least one candidate node. (With overlapping
-\* rules the code as found keeps calling the replicator with an EMPTY candidate list: a holder remembered from
-\* an earlier rule does not lower the shortage of a later rule - a phantom shortage that copies nothing.)
-Replicates(d) == \E k \in 1..Len(d.tasks) : Len(d.tasks[k].nodes) > 0
-Quiet(hs) == \A n \in hs : LET d == Decide27(n, hs, {}, {}) IN ~Replicates(d) /\ d.del = "none"
-NoTasks(hs) == \A n \in hs : ~Replicates(Decide27(n, hs, {}, {}))
- \* a check "replicates" when it hands the replicator a task with at least one candidate node. (With overlapping
-\* rules the code as found keeps calling the replicator with an EMPTY candidate list: a holder remembered from
-\* an earlier rule does not lower the shortage of a later rule - a phantom shortage that copies nothing.)
-Replicates(d) == \E k \in 1..Len(d.tasks) : Len(d.tasks[k].nodes) > 0
-Quiet(hs) == \A n \in hs : LET d == Decide27(n, hs, {}, {}) IN ~Replicates(d) /\ d.del = "none"
-NoTasks(hs) == \A n \in hs : ~Replicates(Decide27(n, hs, {}, {}))
-U\* a check "replicates" when it hands the replicator a task with at least one candidate node. (With overlapping
-\* rules the code as found keeps calling the replicator with an EMPTY candidate list: a holder remembered from
-\* an earlier rule does not lower the shortage of a later rule - a phantom shortage that copies nothing.)
-Replicates(d) == \E k \in 1..Len(d.tasks) : Len(d.tasks[k].nodes) > 0
-Quiet(hs) == \A n \in hs : LET d == Decide27(n, hs, {}, {}) IN ~Replicates(d) /\ d.del = "none"
-NoTasks(hs) == \A n \in hs : ~Replicates(Decide27(n, hs, {}, {}))
-N\* a check "replicates" when it hands the replicator a task with at least one candidate node. (With overlapping
-\* rules the code as found keeps calling the replicator with an EMPTY candidate list: a holder remembered from
-\* an earlier rule does not lower the shortage of a later rule - a phantom shortage that copies nothing.)
-Replicates(d) == \E k \in 1..Len(d.tasks) : Len(d.tasks[k].nodes) > 0
-Quiet(hs) == \A n \in hs : LET d == Decide27(n, hs, {}, {}) IN ~Replicates(d) /\ d.del = "none"
-NoTasks(hs) == \A n \in hs : ~Replicates(Decide27(n, hs, {}, {}))
-C\* a check "replicates" when it hands the replicator a task with at least one candidate node. (With overlapping
-\* rules the code as found keeps calling the replicator with an EMPTY candidate list: a holder remembered from
-\* an earlier rule does not lower the shortage of a later rule - a phantom shortage that copies nothing.)
-Replicates(d) == \E k \in 1..Len(d.tasks) : Len(d.tasks[k].nodes) > 0
-Quiet(hs) == \A n \in hs : LET d == Decide27(n, hs, {}, {}) IN ~Replicates(d) /\ d.del = "none"
-NoTasks(hs) == \A n \in hs : ~Replicates(Decide27(n, hs, {}, {}))
-H\* a check "replicates" when it hands the replicator a task with at least one candidate node. (With overlapping
-\* rules the code as found keeps calling the replicator with an EMPTY candidate list: a holder remembered from
-\* an earlier rule does not lower the shortage of a later rule - a phantom shortage that copies nothing.)
-Replicates(d) == \E k \in 1..Len(d.tasks) : Len(d.tasks[k].nodes) > 0
-Quiet(hs) == \A n \in hs : LET d == Decide27(n, hs, {}, {}) IN ~Replicates(d) /\ d.del = "none"
-NoTasks(hs) == \A n \in hs : ~Replicates(Decide27(n, hs, {}, {}))
-A\* a check "replicates" when it hands the replicator a task with at least one candidate node. (With overlapping
-\* rules the code as found keeps calling the replicator with an EMPTY candidate list: a holder remembered from
-\* an earlier rule does not lower the shortage of a later rule - a phantom shortage that copies nothing.)
-Replicates(d) == \E k \in 1..Len(d.tasks) : Len(d.tasks[k].nodes) > 0
-Quiet(hs) == \A n \in hs : LET d == Decide27(n, hs, {}, {}) IN ~Replicates(d) /\ d.del = "none"
-NoTasks(hs) == \A n \in hs : ~Replicates(Decide27(n, hs, {}, {}))
-N\* a check "replicates" when it hands the replicator a task with at least one candidate node. (With overlapping
-\* rules the code as found keeps calling the replicator with an EMPTY candidate list: a holder remembered from
-\* an earlier rule does not lower the shortage of a later rule - a phantom shortage that copies nothing.)
-Replicates(d) == \E k \in 1..Len(d.tasks) : Len(d.tasks[k].nodes) > 0
-Quiet(hs) == \A n \in hs : LET d == Decide27(n, hs, {}, {}) IN ~Replicates(d) /\ d.del = "none"
-NoTasks(hs) == \A n \in hs : ~Replicates(Decide27(n, hs, {}, {}))
-G\* a check "replicates" when it hands the replicator a task with at least one candidate node. (With overlapping
-\* rules the code as found keeps calling the replicator with an EMPTY candidate list: a holder remembered from
-\* an earlier rule does not lower the shortage of a later rule - a phantom shortage that copies nothing.)
-Replicates(d) == \E k \in 1..Len(d.tasks) : Len(d.tasks[k].nodes) > 0
-Quiet(hs) == \A n \in hs : LET d == Decide27(n, hs, {}, {}) IN ~Replicates(d) /\ d.del = "none"
-NoTasks(hs) == \A n \in hs : ~Replicates(Decide27(n, hs, {}, {}))
-E\* a check "replicates" when it hands the replicator a task with at least one candidate node. (With overlapping
-\* rules the code as found keeps calling the replicator with an EMPTY candidate list: a holder remembered from
-\* an earlier rule does not lower the shortage of a later rule - a phantom shortage that copies nothing.)
-Replicates(d) == \E k \in 1..Len(d.tasks) : Len(d.tasks[k].nodes) > 0
-Quiet(hs) == \A n \in hs : LET d == Decide27(n, hs, {}, {}) IN ~Replicates(d) /\ d.del = "none"
-NoTasks(hs) == \A n \in hs : ~Replicates(Decide27(n, hs, {}, {}))
-D\* a check "replicates" when it hands the replicator a task with at least one candidate node. (With overlapping
-\* rules the code as found keeps calling the replicator with an EMPTY candidate list: a holder remembered from
-\* an earlier rule does not lower the shortage of a later rule - a phantom shortage that copies nothing.)
-Replicates(d) == \E k \in 1..Len(d.tasks) : Len(d.tasks[k].nodes) > 0
-Quiet(hs) == \A n \in hs : LET d == Decide27(n, hs, {}, {}) IN ~Replicates(d) /\ d.del = "none"
-NoTasks(hs) == \A n \in hs : ~Replicates(Decide27(n, hs, {}, {}))
- \* a check "replicates" when it hands the replicator a task with at least one candidate node. (With overlapping
-\* rules the code as found keeps calling the replicator with an EMPTY candidate list: a holder remembered from
-\* an earlier rule does not lower the shortage of a later rule - a phantom shortage that copies nothing.)
-Replicates(d) == \E k \in 1..Len(d.tasks) : Len(d.tasks[k].nodes) > 0
-Quiet(hs) == \A n \in hs : LET d == Decide27(n, hs, {}, {}) IN ~Replicates(d) /\ d.del = "none"
-NoTasks(hs) == \A n \in hs : ~Replicates(Decide27(n, hs, {}, {}))
-r\* a check "replicates" when it hands the replicator a task with at least one candidate node. (With overlapping
-\* rules the code as found keeps calling the replicator with an EMPTY candidate list: a holder remembered from
-\* an earlier rule does not lower the shortage of a later rule - a phantom shortage that copies nothing.)
-Replicates(d) == \E k \in 1..Len(d.tasks) : Len(d.tasks[k].nodes) > 0
-Quiet(hs) == \A n \in hs : LET d == Decide27(n, hs, {}, {}) IN ~Replicates(d) /\ d.del = "none"
-NoTasks(hs) == \A n \in hs : ~Replicates(Decide27(n, hs, {}, {}))
-u\* a check "replicates" when it hands the replicator a task with at least one candidate node. (With overlapping
-\* rules the code as found keeps calling the replicator with an EMPTY candidate list: a holder remembered from
-\* an earlier rule does not lower the shortage of a later rule - a phantom shortage that copies nothing.)
-Replicates(d) == \E k \in 1..Len(d.tasks) : Len(d.tasks[k].nodes) > 0
-Quiet(hs) == \A n \in hs : LET d == Decide27(n, hs, {}, {}) IN ~Replicates(d) /\ d.del = "none"
-NoTasks(hs) == \A n \in hs : ~Replicates(Decide27(n, hs, {}, {}))
-l\* a check "replicates" when it hands the replicator a task with at least one candidate node. (With overlapping
-\* rules the code as found keeps calling the replicator with an EMPTY candidate list: a holder remembered from
-\* an earlier rule does not lower the shortage of a later rule - a phantom shortage that copies nothing.)
-Replicates(d) == \E k \in 1..Len(d.tasks) : Len(d.tasks[k].nodes) > 0
-Quiet(hs) == \A n \in hs : LET d == Decide27(n, hs, {}, {}) IN ~Replicates(d) /\ d.del = "none"
-NoTasks(hs) == \A n \in hs : ~Replicates(Decide27(n, hs, {}, {}))
-e\* a check "replicates" when it hands the replicator a task with at least one candidate node. (With overlapping
-\* rules the code as found keeps calling the replicator with an EMPTY candidate list: a holder remembered from
-\* an earlier rule does not lower the shortage of a later rule - a phantom shortage that copies nothing.)
-Replicates(d) == \E k \in 1..Len(d.tasks) : Len(d.tasks[k].nodes) > 0
-Quiet(hs) == \A n \in hs : LET d == Decide27(n, hs, {}, {}) IN ~Replicates(d) /\ d.del = "none"
-NoTasks(hs) == \A n \in hs : ~Replicates(Decide27(n, hs, {}, {}))
-s\* a check "replicates" when it hands the replicator a task with at least one candidate node. (With overlapping
-\* rules the code as found keeps calling the replicator with an EMPTY candidate list: a holder remembered from
-\* an earlier rule does not lower the shortage of a later rule - a phantom shortage that copies nothing.)
-Replicates(d) == \E k \in 1..Len(d.tasks) : Len(d.tasks[k].nodes) > 0
-Quiet(hs) == \A n \in hs : LET d == Decide27(n, hs, {}, {}) IN ~Replicates(d) /\ d.del = "none"
-NoTasks(hs) == \A n \in hs : ~Replicates(Decide27(n, hs, {}, {}))
-
-\* a check "replicates" when it hands the replicator a task with at least one candidate node. (With overlapping
-\* rules the code as found keeps calling the replicator with an EMPTY candidate list: a holder remembered from
-\* an earlier rule does not lower the shortage of a later rule - a phantom shortage that copies nothing.)
-Replicates(d) == \E k \in 1..Len(d.tasks) : Len(d.tasks[k].nodes) > 0
-Quiet(hs) == \A n \in hs : LET d == Decide27(n, hs, {}, {}) IN ~Replicates(d) /\ d.del = "none"
-NoTasks(hs) == \A n \in hs : ~Replicates(Decide27(n, hs, {}, {}))
-
-\* a check "replicates" when it hands the replicator a task with at least one candidate node. (With overlapping
-\* rules the code as found keeps calling the replicator with an EMPTY candidate list: a holder remembered from
-\* an earlier rule does not lower the shortage of a later rule - a phantom shortage that copies nothing.)
-Replicates(d) == \E k \in 1..Len(d.tasks) : Len(d.tasks[k].nodes) > 0
-Quiet(hs) == \A n \in hs : LET d == Decide27(n, hs, {}, {}) IN ~Replicates(d) /\ d.del = "none"
-NoTasks(hs) == \A n \in hs : ~Replicates(Decide27(n, hs, {}, {}))
-L\* a check "replicates" when it hands the replicator a task with at least one candidate node. (With overlapping
-\* rules the code as found keeps calling the replicator with an EMPTY candidate list: a holder remembered from
-\* an earlier rule does not lower the shortage of a later rule - a phantom shortage that copies nothing.)
-Replicates(d) == \E k \in 1..Len(d.tasks) : Len(d.tasks[k].nodes) > 0
-Quiet(hs) == \A n \in hs : LET d == Decide27(n, hs, {}, {}) IN ~Replicates(d) /\ d.del = "none"
-NoTasks(hs) == \A n \in hs : ~Replicates(Decide27(n, hs, {}, {}))
-i\* a check "replicates" when it hands the replicator a task with at least one candidate node. (With overlapping
-\* rules the code as found keeps calling the replicator with an EMPTY candidate list: a holder remembered from
-\* an earlier rule does not lower the shortage of a later rule - a phantom shortage that copies nothing.)
-Replicates(d) == \E k \in 1..Len(d.tasks) : Len(d.tasks[k].nodes) > 0
-Quiet(hs) == \A n \in hs : LET d == Decide27(n, hs, {}, {}) IN ~Replicates(d) /\ d.del = "none"
-NoTasks(hs) == \A n \in hs : ~Replicates(Decide27(n, hs, {}, {}))
-v\* a check "replicates" when it hands the replicator a task with at least one candidate node. (With overlapping
-\* rules the code as found keeps calling the replicator with an EMPTY candidate list: a holder remembered from
-\* an earlier rule does not lower the shortage of a later rule - a phantom shortage that copies nothing.)
-Replicates(d) == \E k \in 1..Len(d.tasks) : Len(d.tasks[k].nodes) > 0
-Quiet(hs) == \A n \in hs : LET d == Decide27(n, hs, {}, {}) IN ~Replicates(d) /\ d.del = "none"
-NoTasks(hs) == \A n \in hs : ~Replicates(Decide27(n, hs, {}, {}))
-e\* a check "replicates" when it hands the replicator a task with at least one candidate node. (With overlapping
-\* rules the code as found keeps calling the replicator with an EMPTY candidate list: a holder remembered from
-\* an earlier rule does not lower the shortage of a later rule - a phantom shortage that copies nothing.)
-Replicates(d) == \E k \in 1..Len(d.tasks) : Len(d.tasks[k].nodes) > 0
-Quiet(hs) == \A n \in hs : LET d == Decide27(n, hs, {}, {}) IN ~Replicates(d) /\ d.del = "none"
-NoTasks(hs) == \A n \in hs : ~Replicates(Decide27(n, hs, {}, {}))
- \* a check "replicates" when it hands the replicator a task with at least one candidate node. (With overlapping
-\* rules the code as found keeps calling the replicator with an EMPTY candidate list: a holder remembered from
-\* an earlier rule does not lower the shortage of a later rule - a phantom shortage that copies nothing.)
-Replicates(d) == \E k \in 1..Len(d.tasks) : Len(d.tasks[k].nodes) > 0
-Quiet(hs) == \A n \in hs : LET d == Decide27(n, hs, {}, {}) IN ~Replicates(d) /\ d.del = "none"
-NoTasks(hs) == \A n \in hs : ~Replicates(Decide27(n, hs, {}, {}))
-=\* a check "replicates" when it hands the replicator a task with at least one candidate node. (With overlapping
-\* rules the code as found keeps calling the replicator with an EMPTY candidate list: a holder remembered from
-\* an earlier rule does not lower the shortage of a later rule - a phantom shortage that copies nothing.)
-Replicates(d) == \E k \in 1..Len(d.tasks) : Len(d.tasks[k].nodes) > 0
-Quiet(hs) == \A n \in hs : LET d == Decide27(n, hs, {}, {}) IN ~Replicates(d) /\ d.del = "none"
-NoTasks(hs) == \A n \in hs : ~Replicates(Decide27(n, hs, {}, {}))
-=\* a check "replicates" when it hands the replicator a task with at least one candidate node. (With overlapping
-\* rules the code as found keeps calling the replicator with an EMPTY candidate list: a holder remembered from
-\* an earlier rule does not lower the shortage of a later rule - a phantom shortage that copies nothing.)
-Replicates(d) == \E k \in 1..Len(d.tasks) : Len(d.tasks[k].nodes) > 0
-Quiet(hs) == \A n \in hs : LET d == Decide27(n, hs, {}, {}) IN ~Replicates(d) /\ d.del = "none"
-NoTasks(hs) == \A n \in hs : ~Replicates(Decide27(n, hs, {}, {}))
- \* a check "replicates" when it hands the replicator a task with at least one candidate node. (With overlapping
-\* rules the code as found keeps calling the replicator with an EMPTY candidate list: a holder remembered from
-\* an earlier rule does not lower the shortage of a later rule - a phantom shortage that copies nothing.)
-Replicates(d) == \E k \in 1..Len(d.tasks) : Len(d.tasks[k].nodes) > 0
-Quiet(hs) == \A n \in hs : LET d == Decide27(n, hs, {}, {}) IN ~Replicates(d) /\ d.del = "none"
-NoTasks(hs) == \A n \in hs : ~Replicates(Decide27(n, hs, {}, {}))
-C\* a check "replicates" when it hands the replicator a task with at least one candidate node. (With overlapping
-\* rules the code as found keeps calling the replicator with an EMPTY candidate list: a holder remembered from
-\* an earlier rule does not lower the shortage of a later rule - a phantom shortage that copies nothing.)
-Replicates(d) == \E k \in 1..Len(d.tasks) : Len(d.tasks[k].nodes) > 0
-Quiet(hs) == \A n \in hs : LET d == Decide27(n, hs, {}, {}) IN ~Replicates(d) /\ d.del = "none"
-NoTasks(hs) == \A n \in hs : ~Replicates(Decide27(n, hs, {}, {}))
-I\* a check "replicates" when it hands the replicator a task with at least one candidate node. (With overlapping
-\* rules the code as found keeps calling the replicator with an EMPTY candidate list: a holder remembered from
-\* an earlier rule does not lower the shortage of a later rule - a phantom shortage that copies nothing.)
-Replicates(d) == \E k \in 1..Len(d.tasks) : Len(d.tasks[k].nodes) > 0
-Quiet(hs) == \A n \in hs : LET d == Decide27(n, hs, {}, {}) IN ~Replicates(d) /\ d.del = "none"
-NoTasks(hs) == \A n \in hs : ~Replicates(Decide27(n, hs, {}, {}))
-n\* a check "replicates" when it hands the replicator a task with at least one candidate node. (With overlapping
-\* rules the code as found keeps calling the replicator with an EMPTY candidate list: a holder remembered from
-\* an earlier rule does not lower the shortage of a later rule - a phantom shortage that copies nothing.)
-Replicates(d) == \E k \in 1..Len(d.tasks) : Len(d.tasks[k].nodes) > 0
-Quiet(hs) == \A n \in hs : LET d == Decide27(n, hs, {}, {}) IN ~Replicates(d) /\ d.del = "none"
-NoTasks(hs) == \A n \in hs : ~Replicates(Decide27(n, hs, {}, {}))
-i\* a check "replicates" when it hands the replicator a task with at least one candidate node. (With overlapping
-\* rules the code as found keeps calling the replicator with an EMPTY candidate list: a holder remembered from
-\* an earlier rule does not lower the shortage of a later rule - a phantom shortage that copies nothing.)
-Replicates(d) == \E k \in 1..Len(d.tasks) : Len(d.tasks[k].nodes) > 0
-Quiet(hs) == \A n \in hs : LET d == Decide27(n, hs, {}, {}) IN ~Replicates(d) /\ d.del = "none"
-NoTasks(hs) == \A n \in hs : ~Replicates(Decide27(n, hs, {}, {}))
-t\* a check "replicates" when it hands the replicator a task with at least one candidate node. (With overlapping
-\* rules the code as found keeps calling the replicator with an EMPTY candidate list: a holder remembered from
-\* an earlier rule does not lower the shortage of a later rule - a phantom shortage that copies nothing.)
-Replicates(d) == \E k \in 1..Len(d.tasks) : Len(d.tasks[k].nodes) > 0
-Quiet(hs) == \A n \in hs : LET d == Decide27(n, hs, {}, {}) IN ~Replicates(d) /\ d.del = "none"
-NoTasks(hs) == \A n \in hs : ~Replicates(Decide27(n, hs, {}, {}))
- \* a check "replicates" when it hands the replicator a task with at least one candidate node. (With overlapping
-\* rules the code as found keeps calling the replicator with an EMPTY candidate list: a holder remembered from
-\* an earlier rule does not lower the shortage of a later rule - a phantom shortage that copies nothing.)
-Replicates(d) == \E k \in 1..Len(d.tasks) : Len(d.tasks[k].nodes) > 0
-Quiet(hs) == \A n \in hs : LET d == Decide27(n, hs, {}, {}) IN ~Replicates(d) /\ d.del = "none"
-NoTasks(hs) == \A n \in hs : ~Replicates(Decide27(n, hs, {}, {}))
-/\* a check "replicates" when it hands the replicator a task with at least one candidate node. (With overlapping
-\* rules the code as found keeps calling the replicator with an EMPTY candidate list: a holder remembered from
-\* an earlier rule does not lower the shortage of a later rule - a phantom shortage that copies nothing.)
-Replicates(d) == \E k \in 1..Len(d.tasks) : Len(d.tasks[k].nodes) > 0
-Quiet(hs) == \A n \in hs : LET d == Decide27(n, hs, {}, {}) IN ~Replicates(d) /\ d.del = "none"
-NoTasks(hs) == \A n \in hs : ~Replicates(Decide27(n, hs, {}, {}))
-\\* a check "replicates" when it hands the replicator a task with at least one candidate node. (With overlapping
-\* rules the code as found keeps calling the replicator with an EMPTY candidate list: a holder remembered from
-\* an earlier rule does not lower the shortage of a later rule - a phantom shortage that copies nothing.)
-Replicates(d) == \E k \in 1..Len(d.tasks) : Len(d.tasks[k].nodes) > 0
-Quiet(hs) == \A n \in hs : LET d == Decide27(n, hs, {}, {}) IN ~Replicates(d) /\ d.del = "none"
-NoTasks(hs) == \A n \in hs : ~Replicates(Decide27(n, hs, {}, {}))
- \* a check "replicates" when it hands the replicator a task with at least one candidate node. (With overlapping
-\* rules the code as found keeps calling the replicator with an EMPTY candidate list: a holder remembered from
-\* an earlier rule does not lower the shortage of a later rule - a phantom shortage that copies nothing.)
-Replicates(d) == \E k \in 1..Len(d.tasks) : Len(d.tasks[k].nodes) > 0
-Quiet(hs) == \A n \in hs : LET d == Decide27(n, hs, {}, {}) IN ~Replicates(d) /\ d.del = "none"
-NoTasks(hs) == \A n \in hs : ~Replicates(Decide27(n, hs, {}, {}))
-[\* a check "replicates" when it hands the replicator a task with at least one candidate node. (With overlapping
-\* rules the code as found keeps calling the replicator with an EMPTY candidate list: a holder remembered from
-\* an earlier rule does not lower the shortage of a later rule - a phantom shortage that copies nothing.)
-Replicates(d) == \E k \in 1..Len(d.tasks) : Len(d.tasks[k].nodes) > 0
-Quiet(hs) == \A n \in hs : LET d == Decide27(n, hs, {}, {}) IN ~Replicates(d) /\ d.del = "none"
-NoTasks(hs) == \A n \in hs : ~Replicates(Decide27(n, hs, {}, {}))
-]\* a check "replicates" when it hands the replicator a task with at least one candidate node. (With overlapping
-\* rules the code as found keeps calling the replicator with an EMPTY candidate list: a holder remembered from
-\* an earlier rule does not lower the shortage of a later rule - a phantom shortage that copies nothing.)
-Replicates(d) == \E k \in 1..Len(d.tasks) : Len(d.tasks[k].nodes) > 0
-Quiet(hs) == \A n \in hs : LET d == Decide27(n, hs, {}, {}) IN ~Replicates(d) /\ d.del = "none"
-NoTasks(hs) == \A n \in hs : ~Replicates(Decide27(n, hs, {}, {}))
-[\* a check "replicates" when it hands the replicator a task with at least one candidate node. (With overlapping
-\* rules the code as found keeps calling the replicator with an EMPTY candidate list: a holder remembered from
-\* an earlier rule does not lower the shortage of a later rule - a phantom shortage that copies nothing.)
-Replicates(d) == \E k \in 1..Len(d.tasks) : Len(d.tasks[k].nodes) > 0
-Quiet(hs) == \A n \in hs : LET d == Decide27(n, hs, {}, {}) IN ~Replicates(d) /\ d.del = "none"
-NoTasks(hs) == \A n \in hs : ~Replicates(Decide27(n, hs, {}, {}))
-\\* a check "replicates" when it hands the replicator a task with at least one candidate node. (With overlapping
-\* rules the code as found keeps calling the replicator with an EMPTY candidate list: a holder remembered from
-\* an earlier rule does not lower the shortage of a later rule - a phantom shortage that copies nothing.)
-Replicates(d) == \E k \in 1..Len(d.tasks) : Len(d.tasks[k].nodes) > 0
-Quiet(hs) == \A n \in hs : LET d == Decide27(n, hs, {}, {}) IN ~Replicates(d) /\ d.del = "none"
-NoTasks(hs) == \A n \in hs : ~Replicates(Decide27(n, hs, {}, {}))
-E\* a check "replicates" when it hands the replicator a task with at least one candidate node. (With overlapping
-\* rules the code as found keeps calling the replicator with an EMPTY candidate list: a holder remembered from
-\* an earlier rule does not lower the shortage of a later rule - a phantom shortage that copies nothing.)
-Replicates(d) == \E k \in 1..Len(d.tasks) : Len(d.tasks[k].nodes) > 0
-Quiet(hs) == \A n \in hs : LET d == Decide27(n, hs, {}, {}) IN ~Replicates(d) /\ d.del = "none"
-NoTasks(hs) == \A n \in hs : ~Replicates(Decide27(n, hs, {}, {}))
- \* a check "replicates" when it hands the replicator a task with at least one candidate node. (With overlapping
-\* rules the code as found keeps calling the replicator with an EMPTY candidate list: a holder remembered from
-\* an earlier rule does not lower the shortage of a later rule - a phantom shortage that copies nothing.)
-Replicates(d) == \E k \in 1..Len(d.tasks) : Len(d.tasks[k].nodes) > 0
-Quiet(hs) == \A n \in hs : LET d == Decide27(n, hs, {}, {}) IN ~Replicates(d) /\ d.del = "none"
-NoTasks(hs) == \A n \in hs : ~Replicates(Decide27(n, hs, {}, {}))
-n\* a check "replicates" when it hands the replicator a task with at least one candidate node. (With overlapping
-\* rules the code as found keeps calling the replicator with an EMPTY candidate list: a holder remembered from
-\* an earlier rule does not lower the shortage of a later rule - a phantom shortage that copies nothing.)
-Replicates(d) == \E k \in 1..Len(d.tasks) : Len(d.tasks[k].nodes) > 0
-Quiet(hs) == \A n \in hs : LET d == Decide27(n, hs, {}, {}) IN ~Replicates(d) /\ d.del = "none"
-NoTasks(hs) == \A n \in hs : ~Replicates(Decide27(n, hs, {}, {}))
- \* a check "replicates" when it hands the replicator a task with at least one candidate node. (With overlapping
-\* rules the code as found keeps calling the replicator with an EMPTY candidate list: a holder remembered from
-\* an earlier rule does not lower the shortage of a later rule - a phantom shortage that copies nothing.)
-Replicates(d) == \E k \in 1..Len(d.tasks) : Len(d.tasks[k].nodes) > 0
-Quiet(hs) == \A n \in hs : LET d == Decide27(n, hs, {}, {}) IN ~Replicates(d) /\ d.del = "none"
-NoTasks(hs) == \A n \in hs : ~Replicates(Decide27(n, hs, {}, {}))
-\\* a check "replicates" when it hands the replicator a task with at least one candidate node. (With overlapping
-\* rules the code as found keeps calling the replicator with an EMPTY candidate list: a holder remembered from
-\* an earlier rule does not lower the shortage of a later rule - a phantom shortage that copies nothing.)
-Replicates(d) == \E k \in 1..Len(d.tasks) : Len(d.tasks[k].nodes) > 0
-Quiet(hs) == \A n \in hs : LET d == Decide27(n, hs, {}, {}) IN ~Replicates(d) /\ d.del = "none"
-NoTasks(hs) == \A n \in hs : ~Replicates(Decide27(n, hs, {}, {}))
-i\* a check "replicates" when it hands the replicator a task with at least one candidate node. (With overlapping
-\* rules the code as found keeps calling the replicator with an EMPTY candidate list: a holder remembered from
-\* an earlier rule does not lower the shortage of a later rule - a phantom shortage that copies nothing.)
-Replicates(d) == \E k \in 1..Len(d.tasks) : Len(d.tasks[k].nodes) > 0
-Quiet(hs) == \A n \in hs : LET d == Decide27(n, hs, {}, {}) IN ~Replicates(d) /\ d.del = "none"
-NoTasks(hs) == \A n \in hs : ~Replicates(Decide27(n, hs, {}, {}))
-n\* a check "replicates" when it hands the replicator a task with at least one candidate node. (With overlapping
-\* rules the code as found keeps calling the replicator with an EMPTY candidate list: a holder remembered from
-\* an earlier rule does not lower the shortage of a later rule - a phantom shortage that copies nothing.)
-Replicates(d) == \E k \in 1..Len(d.tasks) : Len(d.tasks[k].nodes) > 0
-Quiet(hs) == \A n \in hs : LET d == Decide27(n, hs, {}, {}) IN ~Replicates(d) /\ d.del = "none"
-NoTasks(hs) == \A n \in hs : ~Replicates(Decide27(n, hs, {}, {}))
- \* a check "replicates" when it hands the replicator a task with at least one candidate node. (With overlapping
-\* rules the code as found keeps calling the replicator with an EMPTY candidate list: a holder remembered from
-\* an earlier rule does not lower the shortage of a later rule - a phantom shortage that copies nothing.)
-Replicates(d) == \E k \in 1..Len(d.tasks) : Len(d.tasks[k].nodes) > 0
-Quiet(hs) == \A n \in hs : LET d == Decide27(n, hs, {}, {}) IN ~Replicates(d) /\ d.del = "none"
-NoTasks(hs) == \A n \in hs : ~Replicates(Decide27(n, hs, {}, {}))
-C\* a check "replicates" when it hands the replicator a task with at least one candidate node. (With overlapping
-\* rules the code as found keeps calling the replicator with an EMPTY candidate list: a holder remembered from
-\* an earlier rule does not lower the shortage of a later rule - a phantom shortage that copies nothing.)
-Replicates(d) == \E k \in 1..Len(d.tasks) : Len(d.tasks[k].nodes) > 0
-Quiet(hs) == \A n \in hs : LET d == Decide27(n, hs, {}, {}) IN ~Replicates(d) /\ d.del = "none"
-NoTasks(hs) == \A n \in hs : ~Replicates(Decide27(n, hs, {}, {}))
-l\* a check "replicates" when it hands the replicator a task with at least one candidate node. (With overlapping
-\* rules the code as found keeps calling the replicator with an EMPTY candidate list: a holder remembered from
-\* an earlier rule does not lower the shortage of a later rule - a phantom shortage that copies nothing.)
-Replicates(d) == \E k \in 1..Len(d.tasks) : Len(d.tasks[k].nodes) > 0
-Quiet(hs) == \A n \in hs : LET d == Decide27(n, hs, {}, {}) IN ~Replicates(d) /\ d.del = "none"
-NoTasks(hs) == \A n \in hs : ~Replicates(Decide27(n, hs, {}, {}))
-u\* a check "replicates" when it hands the replicator a task with at least one candidate node. (With overlapping
-\* rules the code as found keeps calling the replicator with an EMPTY candidate list: a holder remembered from
-\* an earlier rule does not lower the shortage of a later rule - a phantom shortage that copies nothing.)
-Replicates(d) == \E k \in 1..Len(d.tasks) : Len(d.tasks[k].nodes) > 0
-Quiet(hs) == \A n \in hs : LET d == Decide27(n, hs, {}, {}) IN ~Replicates(d) /\ d.del = "none"
-NoTasks(hs) == \A n \in hs : ~Replicates(Decide27(n, hs, {}, {}))
-s\* a check "replicates" when it hands the replicator a task with at least one candidate node. (With overlapping
-\* rules the code as found keeps calling the replicator with an EMPTY candidate list: a holder remembered from
-\* an earlier rule does not lower the shortage of a later rule - a phantom shortage that copies nothing.)
-Replicates(d) == \E k \in 1..Len(d.tasks) : Len(d.tasks[k].nodes) > 0
-Quiet(hs) == \A n \in hs : LET d == Decide27(n, hs, {}, {}) IN ~Replicates(d) /\ d.del = "none"
-NoTasks(hs) == \A n \in hs : ~Replicates(Decide27(n, hs, {}, {}))
-t\* a check "replicates" when it hands the replicator a task with at least one candidate node. (With overlapping
-\* rules the code as found keeps calling the replicator with an EMPTY candidate list: a holder remembered from
-\* an earlier rule does not lower the shortage of a later rule - a phantom shortage that copies nothing.)
-Replicates(d) == \E k \in 1..Len(d.tasks) : Len(d.tasks[k].nodes) > 0
-Quiet(hs) == \A n \in hs : LET d == Decide27(n, hs, {}, {}) IN ~Replicates(d) /\ d.del = "none"
-NoTasks(hs) == \A n \in hs : ~Replicates(Decide27(n, hs, {}, {}))
-e\* a check "replicates" when it hands the replicator a task with at least one candidate node. (With overlapping
-\* rules the code as found keeps calling the replicator with an EMPTY candidate list: a holder remembered from
-\* an earlier rule does not lower the shortage of a later rule - a phantom shortage that copies nothing.)
-Replicates(d) == \E k \in 1..Len(d.tasks) : Len(d.tasks[k].nodes) > 0
-Quiet(hs) == \A n \in hs : LET d == Decide27(n, hs, {}, {}) IN ~Replicates(d) /\ d.del = "none"
-NoTasks(hs) == \A n \in hs : ~Replicates(Decide27(n, hs, {}, {}))
-r\* a check "replicates" when it hands the replicator a task with at least one candidate node. (With overlapping
-\* rules the code as found keeps calling the replicator with an EMPTY candidate list: a holder remembered from
-\* an earlier rule does not lower the shortage of a later rule - a phantom shortage that copies nothing.)
-Replicates(d) == \E k \in 1..Len(d.tasks) : Len(d.tasks[k].nodes) > 0
-Quiet(hs) == \A n \in hs : LET d == Decide27(n, hs, {}, {}) IN ~Replicates(d) /\ d.del = "none"
-NoTasks(hs) == \A n \in hs : ~Replicates(Decide27(n, hs, {}, {}))
- \* a check "replicates" when it hands the replicator a task with at least one candidate node. (With overlapping
-\* rules the code as found keeps calling the replicator with an EMPTY candidate list: a holder remembered from
-\* an earlier rule does not lower the shortage of a later rule - a phantom shortage that copies nothing.)
-Replicates(d) == \E k \in 1..Len(d.tasks) : Len(d.tasks[k].nodes) > 0
-Quiet(hs) == \A n \in hs : LET d == Decide27(n, hs, {}, {}) IN ~Replicates(d) /\ d.del = "none"
-NoTasks(hs) == \A n \in hs : ~Replicates(Decide27(n, hs, {}, {}))
-:\* a check "replicates" when it hands the replicator a task with at least one candidate node. (With overlapping
-\* rules the code as found keeps calling the replicator with an EMPTY candidate list: a holder remembered from
-\* an earlier rule does not lower the shortage of a later rule - a phantom shortage that copies nothing.)
-Replicates(d) == \E k \in 1..Len(d.tasks) : Len(d.tasks[k].nodes) > 0
-Quiet(hs) == \A n \in hs : LET d == Decide27(n, hs, {}, {}) IN ~Replicates(d) /\ d.del = "none"
-NoTasks(hs) == \A n \in hs : ~Replicates(Decide27(n, hs, {}, {}))
- \* a check "replicates" when it hands the replicator a task with at least one candidate node. (With overlapping
-\* rules the code as found keeps calling the replicator with an EMPTY candidate list: a holder remembered from
-\* an earlier rule does not lower the shortage of a later rule - a phantom shortage that copies nothing.)
-Replicates(d) == \E k \in 1..Len(d.tasks) : Len(d.tasks[k].nodes) > 0
-Quiet(hs) == \A n \in hs : LET d == Decide27(n, hs, {}, {}) IN ~Replicates(d) /\ d.del = "none"
-NoTasks(hs) == \A n \in hs : ~Replicates(Decide27(n, hs, {}, {}))
-R\* a check "replicates" when it hands the replicator a task with at least one candidate node. (With overlapping
-\* rules the code as found keeps calling the replicator with an EMPTY candidate list: a holder remembered from
-\* an earlier rule does not lower the shortage of a later rule - a phantom shortage that copies nothing.)
-Replicates(d) == \E k \in 1..Len(d.tasks) : Len(d.tasks[k].nodes) > 0
-Quiet(hs) == \A n \in hs : LET d == Decide27(n, hs, {}, {}) IN ~Replicates(d) /\ d.del = "none"
-NoTasks(hs) == \A n \in hs : ~Replicates(Decide27(n, hs, {}, {}))
-u\* a check "replicates" when it hands the replicator a task with at least one candidate node. (With overlapping
-\* rules the code as found keeps calling the replicator with an EMPTY candidate list: a holder remembered from
-\* an earlier rule does not lower the shortage of a later rule - a phantom shortage that copies nothing.)
-Replicates(d) == \E k \in 1..Len(d.tasks) : Len(d.tasks[k].nodes) > 0
-Quiet(hs) == \A n \in hs : LET d == Decide27(n, hs, {}, {}) IN ~Replicates(d) /\ d.del = "none"
-NoTasks(hs) == \A n \in hs : ~Replicates(Decide27(n, hs, {}, {}))
-n\* a check "replicates" when it hands the replicator a task with at least one candidate node. (With overlapping
-\* rules the code as found keeps calling the replicator with an EMPTY candidate list: a holder remembered from
-\* an earlier rule does not lower the shortage of a later rule - a phantom shortage that copies nothing.)
-Replicates(d) == \E k \in 1..Len(d.tasks) : Len(d.tasks[k].nodes) > 0
-Quiet(hs) == \A n \in hs : LET d == Decide27(n, hs, {}, {}) IN ~Replicates(d) /\ d.del = "none"
-NoTasks(hs) == \A n \in hs : ~Replicates(Decide27(n, hs, {}, {}))
-(\* a check "replicates" when it hands the replicator a task with at least one candidate node. (With overlapping
-\* rules the code as found keeps calling the replicator with an EMPTY candidate list: a holder remembered from
-\* an earlier rule does not lower the shortage of a later rule - a phantom shortage that copies nothing.)
-Replicates(d) == \E k \in 1..Len(d.tasks) : Len(d.tasks[k].nodes) > 0
-Quiet(hs) == \A n \in hs : LET d == Decide27(n, hs, {}, {}) IN ~Replicates(d) /\ d.del = "none"
-NoTasks(hs) == \A n \in hs : ~Replicates(Decide27(n, hs, {}, {}))
-n\* a check "replicates" when it hands the replicator a task with at least one candidate node. (With overlapping
-\* rules the code as found keeps calling the replicator with an EMPTY candidate list: a holder remembered from
-\* an earlier rule does not lower the shortage of a later rule - a phantom shortage that copies nothing.)
-Replicates(d) == \E k \in 1..Len(d.tasks) : Len(d.tasks[k].nodes) > 0
-Quiet(hs) == \A n \in hs : LET d == Decide27(n, hs, {}, {}) IN ~Replicates(d) /\ d.del = "none"
-NoTasks(hs) == \A n \in hs : ~Replicates(Decide27(n, hs, {}, {}))
-)\* a check "replicates" when it hands the replicator a task with at least one candidate node. (With overlapping
-\* rules the code as found keeps calling the replicator with an EMPTY candidate list: a holder remembered from
-\* an earlier rule does not lower the shortage of a later rule - a phantom shortage that copies nothing.)
-Replicates(d) == \E k \in 1..Len(d.tasks) : Len(d.tasks[k].nodes) > 0
-Quiet(hs) == \A n \in hs : LET d == Decide27(n, hs, {}, {}) IN ~Replicates(d) /\ d.del = "none"
-NoTasks(hs) == \A n \in hs : ~Replicates(Decide27(n, hs, {}, {}))
- \* a check "replicates" when it hands the replicator a task with at least one candidate node. (With overlapping
-\* rules the code as found keeps calling the replicator with an EMPTY candidate list: a holder remembered from
-\* an earlier rule does not lower the shortage of a later rule - a phantom shortage that copies nothing.)
-Replicates(d) == \E k \in 1..Len(d.tasks) : Len(d.tasks[k].nodes) > 0
-Quiet(hs) == \A n \in hs : LET d == Decide27(n, hs, {}, {}) IN ~Replicates(d) /\ d.del = "none"
-NoTasks(hs) == \A n \in hs : ~Replicates(Decide27(n, hs, {}, {}))
-/\* a check "replicates" when it hands the replicator a task with at least one candidate node. (With overlapping
-\* rules the code as found keeps calling the replicator with an EMPTY candidate list: a holder remembered from
-\* an earlier rule does not lower the shortage of a later rule - a phantom shortage that copies nothing.)
-Replicates(d) == \E k \in 1..Len(d.tasks) : Len(d.tasks[k].nodes) > 0
-Quiet(hs) == \A n \in hs : LET d == Decide27(n, hs, {}, {}) IN ~Replicates(d) /\ d.del = "none"
-NoTasks(hs) == \A n \in hs : ~Replicates(Decide27(n, hs, {}, {}))
-\\* a check "replicates" when it hands the replicator a task with at least one candidate node. (With overlapping
-\* rules the code as found keeps calling the replicator with an EMPTY candidate list: a holder remembered from
-\* an earlier rule does not lower the shortage of a later rule - a phantom shortage that copies nothing.)
-Replicates(d) == \E k \in 1..Len(d.tasks) : Len(d.tasks[k].nodes) > 0
-Quiet(hs) == \A n \in hs : LET d == Decide27(n, hs, {}, {}) IN ~Replicates(d) /\ d.del = "none"
-NoTasks(hs) == \A n \in hs : ~Replicates(Decide27(n, hs, {}, {}))
- \* a check "replicates" when it hands the replicator a task with at least one candidate node. (With overlapping
-\* rules the code as found keeps calling the replicator with an EMPTY candidate list: a holder remembered from
-\* an earlier rule does not lower the shortage of a later rule - a phantom shortage that copies nothing.)
-Replicates(d) == \E k \in 1..Len(d.tasks) : Len(d.tasks[k].nodes) > 0
-Quiet(hs) == \A n \in hs : LET d == Decide27(n, hs, {}, {}) IN ~Replicates(d) /\ d.del = "none"
-NoTasks(hs) == \A n \in hs : ~Replicates(Decide27(n, hs, {}, {}))
-U\* a check "replicates" when it hands the replicator a task with at least one candidate node. (With overlapping
-\* rules the code as found keeps calling the replicator with an EMPTY candidate list: a holder remembered from
-\* an earlier rule does not lower the shortage of a later rule - a phantom shortage that copies nothing.)
-Replicates(d) == \E k \in 1..Len(d.tasks) : Len(d.tasks[k].nodes) > 0
-Quiet(hs) == \A n \in hs : LET d == Decide27(n, hs, {}, {}) IN ~Replicates(d) /\ d.del = "none"
-NoTasks(hs) == \A n \in hs : ~Replicates(Decide27(n, hs, {}, {}))
-N\* a check "replicates" when it hands the replicator a task with at least one candidate node. (With overlapping
-\* rules the code as found keeps calling the replicator with an EMPTY candidate list: a holder remembered from
-\* an earlier rule does not lower the shortage of a later rule - a phantom shortage that copies nothing.)
-Replicates(d) == \E k \in 1..Len(d.tasks) : Len(d.tasks[k].nodes) > 0
-Quiet(hs) == \A n \in hs : LET d == Decide27(n, hs, {}, {}) IN ~Replicates(d) /\ d.del = "none"
-NoTasks(hs) == \A n \in hs : ~Replicates(Decide27(n, hs, {}, {}))
-C\* a check "replicates" when it hands the replicator a task with at least one candidate node. (With overlapping
-\* rules the code as found keeps calling the replicator with an EMPTY candidate list: a holder remembered from
-\* an earlier rule does not lower the shortage of a later rule - a phantom shortage that copies nothing.)
-Replicates(d) == \E k \in 1..Len(d.tasks) : Len(d.tasks[k].nodes) > 0
-Quiet(hs) == \A n \in hs : LET d == Decide27(n, hs, {}, {}) IN ~Replicates(d) /\ d.del = "none"
-NoTasks(hs) == \A n \in hs : ~Replicates(Decide27(n, hs, {}, {}))
-H\* a check "replicates" when it hands the replicator a task with at least one candidate node. (With overlapping
-\* rules the code as found keeps calling the replicator with an EMPTY candidate list: a holder remembered from
-\* an earlier rule does not lower the shortage of a later rule - a phantom shortage that copies nothing.)
-Replicates(d) == \E k \in 1..Len(d.tasks) : Len(d.tasks[k].nodes) > 0
-Quiet(hs) == \A n \in hs : LET d == Decide27(n, hs, {}, {}) IN ~Replicates(d) /\ d.del = "none"
-NoTasks(hs) == \A n \in hs : ~Replicates(Decide27(n, hs, {}, {}))
-A\* a check "replicates" when it hands the replicator a task with at least one candidate node. (With overlapping
-\* rules the code as found keeps calling the replicator with an EMPTY candidate list: a holder remembered from
-\* an earlier rule does not lower the shortage of a later rule - a phantom shortage that copies nothing.)
-Replicates(d) == \E k \in 1..Len(d.tasks) : Len(d.tasks[k].nodes) > 0
-Quiet(hs) == \A n \in hs : LET d == Decide27(n, hs, {}, {}) IN ~Replicates(d) /\ d.del = "none"
-NoTasks(hs) == \A n \in hs : ~Replicates(Decide27(n, hs, {}, {}))
-N\* a check "replicates" when it hands the replicator a task with at least one candidate node. (With overlapping
-\* rules the code as found keeps calling the replicator with an EMPTY candidate list: a holder remembered from
-\* an earlier rule does not lower the shortage of a later rule - a phantom shortage that copies nothing.)
-Replicates(d) == \E k \in 1..Len(d.tasks) : Len(d.tasks[k].nodes) > 0
-Quiet(hs) == \A n \in hs : LET d == Decide27(n, hs, {}, {}) IN ~Replicates(d) /\ d.del = "none"
-NoTasks(hs) == \A n \in hs : ~Replicates(Decide27(n, hs, {}, {}))
-G\* a check "replicates" when it hands the replicator a task with at least one candidate node. (With overlapping
-\* rules the code as found keeps calling the replicator with an EMPTY candidate list: a holder remembered from
-\* an earlier rule does not lower the shortage of a later rule - a phantom shortage that copies nothing.)
-Replicates(d) == \E k \in 1..Len(d.tasks) : Len(d.tasks[k].nodes) > 0
-Quiet(hs) == \A n \in hs : LET d == Decide27(n, hs, {}, {}) IN ~Replicates(d) /\ d.del = "none"
-NoTasks(hs) == \A n \in hs : ~Replicates(Decide27(n, hs, {}, {}))
-E\* a check "replicates" when it hands the replicator a task with at least one candidate node. (With overlapping
-\* rules the code as found keeps calling the replicator with an EMPTY candidate list: a holder remembered from
-\* an earlier rule does not lower the shortage of a later rule - a phantom shortage that copies nothing.)
-Replicates(d) == \E k \in 1..Len(d.tasks) : Len(d.tasks[k].nodes) > 0
-Quiet(hs) == \A n \in hs : LET d == Decide27(n, hs, {}, {}) IN ~Replicates(d) /\ d.del = "none"
-NoTasks(hs) == \A n \in hs : ~Replicates(Decide27(n, hs, {}, {}))
-D\* a check "replicates" when it hands the replicator a task with at least one candidate node. (With overlapping
-\* rules the code as found keeps calling the replicator with an EMPTY candidate list: a holder remembered from
-\* an earlier rule does not lower the shortage of a later rule - a phantom shortage that copies nothing.)
-Replicates(d) == \E k \in 1..Len(d.tasks) : Len(d.tasks[k].nodes) > 0
-Quiet(hs) == \A n \in hs : LET d == Decide27(n, hs, {}, {}) IN ~Replicates(d) /\ d.del = "none"
-NoTasks(hs) == \A n \in hs : ~Replicates(Decide27(n, hs, {}, {}))
- \* a check "replicates" when it hands the replicator a task with at least one candidate node. (With overlapping
-\* rules the code as found keeps calling the replicator with an EMPTY candidate list: a holder remembered from
-\* an earlier rule does not lower the shortage of a later rule - a phantom shortage that copies nothing.)
-Replicates(d) == \E k \in 1..Len(d.tasks) : Len(d.tasks[k].nodes) > 0
-Quiet(hs) == \A n \in hs : LET d == Decide27(n, hs, {}, {}) IN ~Replicates(d) /\ d.del = "none"
-NoTasks(hs) == \A n \in hs : ~Replicates(Decide27(n, hs, {}, {}))
-v\* a check "replicates" when it hands the replicator a task with at least one candidate node. (With overlapping
-\* rules the code as found keeps calling the replicator with an EMPTY candidate list: a holder remembered from
-\* an earlier rule does not lower the shortage of a later rule - a phantom shortage that copies nothing.)
-Replicates(d) == \E k \in 1..Len(d.tasks) : Len(d.tasks[k].nodes) > 0
-Quiet(hs) == \A n \in hs : LET d == Decide27(n, hs, {}, {}) IN ~Replicates(d) /\ d.del = "none"
-NoTasks(hs) == \A n \in hs : ~Replicates(Decide27(n, hs, {}, {}))
-a\* a check "replicates" when it hands the replicator a task with at least one candidate node. (With overlapping
-\* rules the code as found keeps calling the replicator with an EMPTY candidate list: a holder remembered from
-\* an earlier rule does not lower the shortage of a later rule - a phantom shortage that copies nothing.)
-Replicates(d) == \E k \in 1..Len(d.tasks) : Len(d.tasks[k].nodes) > 0
-Quiet(hs) == \A n \in hs : LET d == Decide27(n, hs, {}, {}) IN ~Replicates(d) /\ d.del = "none"
-NoTasks(hs) == \A n \in hs : ~Replicates(Decide27(n, hs, {}, {}))
-r\* a check "replicates" when it hands the replicator a task with at least one candidate node. (With overlapping
-\* rules the code as found keeps calling the replicator with an EMPTY candidate list: a holder remembered from
-\* an earlier rule does not lower the shortage of a later rule - a phantom shortage that copies nothing.)
-Replicates(d) == \E k \in 1..Len(d.tasks) : Len(d.tasks[k].nodes) > 0
-Quiet(hs) == \A n \in hs : LET d == Decide27(n, hs, {}, {}) IN ~Replicates(d) /\ d.del = "none"
-NoTasks(hs) == \A n \in hs : ~Replicates(Decide27(n, hs, {}, {}))
-s\* a check "replicates" when it hands the replicator a task with at least one candidate node. (With overlapping
-\* rules the code as found keeps calling the replicator with an EMPTY candidate list: a holder remembered from
-\* an earlier rule does not lower the shortage of a later rule - a phantom shortage that copies nothing.)
-Replicates(d) == \E k \in 1..Len(d.tasks) : Len(d.tasks[k].nodes) > 0
-Quiet(hs) == \A n \in hs : LET d == Decide27(n, hs, {}, {}) IN ~Replicates(d) /\ d.del = "none"
-NoTasks(hs) == \A n \in hs : ~Replicates(Decide27(n, hs, {}, {}))
-]\* a check "replicates" when it hands the replicator a task with at least one candidate node. (With overlapping
-\* rules the code as found keeps calling the replicator with an EMPTY candidate list: a holder remembered from
-\* an earlier rule does not lower the shortage of a later rule - a phantom shortage that copies nothing.)
-Replicates(d) == \E k \in 1..Len(d.tasks) : Len(d.tasks[k].nodes) > 0
-Quiet(hs) == \A n \in hs : LET d == Decide27(n, hs, {}, {}) IN ~Replicates(d) /\ d.del = "none"
-NoTasks(hs) == \A n \in hs : ~Replicates(Decide27(n, hs, {}, {}))
-_\* a check "replicates" when it hands the replicator a task with at least one candidate node. (With overlapping
-\* rules the code as found keeps calling the replicator with an EMPTY candidate list: a holder remembered from
-\* an earlier rule does not lower the shortage of a later rule - a phantom shortage that copies nothing.)
-Replicates(d) == \E k \in 1..Len(d.tasks) : Len(d.tasks[k].nodes) > 0
-Quiet(hs) == \A n \in hs : LET d == Decide27(n, hs, {}, {}) IN ~Replicates(d) /\ d.del = "none"
-NoTasks(hs) == \A n \in hs : ~Replicates(Decide27(n, hs, {}, {}))
-<\* a check "replicates" when it hands the replicator a task with at least one candidate node. (With overlapping
-\* rules the code as found keeps calling the replicator with an EMPTY candidate list: a holder remembered from
-\* an earlier rule does not lower the shortage of a later rule - a phantom shortage that copies nothing.)
-Replicates(d) == \E k \in 1..Len(d.tasks) : Len(d.tasks[k].nodes) > 0
-Quiet(hs) == \A n \in hs : LET d == Decide27(n, hs, {}, {}) IN ~Replicates(d) /\ d.del = "none"
-NoTasks(hs) == \A n \in hs : ~Replicates(Decide27(n, hs, {}, {}))
-<\* a check "replicates" when it hands the replicator a task with at least one candidate node. (With overlapping
-\* rules the code as found keeps calling the replicator with an EMPTY candidate list: a holder remembered from
-\* an earlier rule does not lower the shortage of a later rule - a phantom shortage that copies nothing.)
-Replicates(d) == \E k \in 1..Len(d.tasks) : Len(d.tasks[k].nodes) > 0
-Quiet(hs) == \A n \in hs : LET d == Decide27(n, hs, {}, {}) IN ~Replicates(d) /\ d.del = "none"
-NoTasks(hs) == \A n \in hs : ~Replicates(Decide27(n, hs, {}, {}))
-c\* a check "replicates" when it hands the replicator a task with at least one candidate node. (With overlapping
-\* rules the code as found keeps calling the replicator with an EMPTY candidate list: a holder remembered from
-\* an earlier rule does not lower the shortage of a later rule - a phantom shortage that copies nothing.)
-Replicates(d) == \E k \in 1..Len(d.tasks) : Len(d.tasks[k].nodes) > 0
-Quiet(hs) == \A n \in hs : LET d == Decide27(n, hs, {}, {}) IN ~Replicates(d) /\ d.del = "none"
-NoTasks(hs) == \A n \in hs : ~Replicates(Decide27(n, hs, {}, {}))
-v\* a check "replicates" when it hands the replicator a task with at least one candidate node. (With overlapping
-\* rules the code as found keeps calling the replicator with an EMPTY candidate list: a holder remembered from
-\* an earlier rule does not lower the shortage of a later rule - a phantom shortage that copies nothing.)
-Replicates(d) == \E k \in 1..Len(d.tasks) : Len(d.tasks[k].nodes) > 0
-Quiet(hs) == \A n \in hs : LET d == Decide27(n, hs, {}, {}) IN ~Replicates(d) /\ d.del = "none"
-NoTasks(hs) == \A n \in hs : ~Replicates(Decide27(n, hs, {}, {}))
-a\* a check "replicates" when it hands the replicator a task with at least one candidate node. (With overlapping
-\* rules the code as found keeps calling the replicator with an EMPTY candidate list: a holder remembered from
-\* an earlier rule does not lower the shortage of a later rule - a phantom shortage that copies nothing.)
-Replicates(d) == \E k \in 1..Len(d.tasks) : Len(d.tasks[k].nodes) > 0
-Quiet(hs) == \A n \in hs : LET d == Decide27(n, hs, {}, {}) IN ~Replicates(d) /\ d.del = "none"
-NoTasks(hs) == \A n \in hs : ~Replicates(Decide27(n, hs, {}, {}))
-r\* a check "replicates" when it hands the replicator a task with at least one candidate node. (With overlapping
-\* rules the code as found keeps calling the replicator with an EMPTY candidate list: a holder remembered from
-\* an earlier rule does not lower the shortage of a later rule - a phantom shortage that copies nothing.)
-Replicates(d) == \E k \in 1..Len(d.tasks) : Len(d.tasks[k].nodes) > 0
-Quiet(hs) == \A n \in hs : LET d == Decide27(n, hs, {}, {}) IN ~Replicates(d) /\ d.del = "none"
-NoTasks(hs) == \A n \in hs : ~Replicates(Decide27(n, hs, {}, {}))
-s\* a check "replicates" when it hands the replicator a task with at least one candidate node. (With overlapping
-\* rules the code as found keeps calling the replicator with an EMPTY candidate list: a holder remembered from
-\* an earlier rule does not lower the shortage of a later rule - a phantom shortage that copies nothing.)
-Replicates(d) == \E k \in 1..Len(d.tasks) : Len(d.tasks[k].nodes) > 0
-Quiet(hs) == \A n \in hs : LET d == Decide27(n, hs, {}, {}) IN ~Replicates(d) /\ d.del = "none"
-NoTasks(hs) == \A n \in hs : ~Replicates(Decide27(n, hs, {}, {}))
-,\* a check "replicates" when it hands the replicator a task with at least one candidate node. (With overlapping
-\* rules the code as found keeps calling the replicator with an EMPTY candidate list: a holder remembered from
-\* an earlier rule does not lower the shortage of a later rule - a phantom shortage that copies nothing.)
-Replicates(d) == \E k \in 1..Len(d.tasks) : Len(d.tasks[k].nodes) > 0
-Quiet(hs) == \A n \in hs : LET d == Decide27(n, hs, {}, {}) IN ~Replicates(d) /\ d.del = "none"
-NoTasks(hs) == \A n \in hs : ~Replicates(Decide27(n, hs, {}, {}))
- \* a check "replicates" when it hands the replicator a task with at least one candidate node. (With overlapping
-\* rules the code as found keeps calling the replicator with an EMPTY candidate list: a holder remembered from
-\* an earlier rule does not lower the shortage of a later rule - a phantom shortage that copies nothing.)
-Replicates(d) == \E k \in 1..Len(d.tasks) : Len(d.tasks[k].nodes) > 0
-Quiet(hs) == \A n \in hs : LET d == Decide27(n, hs, {}, {}) IN ~Replicates(d) /\ d.del = "none"
-NoTasks(hs) == \A n \in hs : ~Replicates(Decide27(n, hs, {}, {}))
-v\* a check "replicates" when it hands the replicator a task with at least one candidate node. (With overlapping
-\* rules the code as found keeps calling the replicator with an EMPTY candidate list: a holder remembered from
-\* an earlier rule does not lower the shortage of a later rule - a phantom shortage that copies nothing.)
-Replicates(d) == \E k \in 1..Len(d.tasks) : Len(d.tasks[k].nodes) > 0
-Quiet(hs) == \A n \in hs : LET d == Decide27(n, hs, {}, {}) IN ~Replicates(d) /\ d.del = "none"
-NoTasks(hs) == \A n \in hs : ~Replicates(Decide27(n, hs, {}, {}))
-a\* a check "replicates" when it hands the replicator a task with at least one candidate node. (With overlapping
-\* rules the code as found keeps calling the replicator with an EMPTY candidate list: a holder remembered from
-\* an earlier rule does not lower the shortage of a later rule - a phantom shortage that copies nothing.)
-Replicates(d) == \E k \in 1..Len(d.tasks) : Len(d.tasks[k].nodes) > 0
-Quiet(hs) == \A n \in hs : LET d == Decide27(n, hs, {}, {}) IN ~Replicates(d) /\ d.del = "none"
-NoTasks(hs) == \A n \in hs : ~Replicates(Decide27(n, hs, {}, {}))
-r\* a check "replicates" when it hands the replicator a task with at least one candidate node. (With overlapping
-\* rules the code as found keeps calling the replicator with an EMPTY candidate list: a holder remembered from
-\* an earlier rule does not lower the shortage of a later rule - a phantom shortage that copies nothing.)
-Replicates(d) == \E k \in 1..Len(d.tasks) : Len(d.tasks[k].nodes) > 0
-Quiet(hs) == \A n \in hs : LET d == Decide27(n, hs, {}, {}) IN ~Replicates(d) /\ d.del = "none"
-NoTasks(hs) == \A n \in hs : ~Replicates(Decide27(n, hs, {}, {}))
-s\* a check "replicates" when it hands the replicator a task with at least one candidate node. (With overlapping
-\* rules the code as found keeps calling the replicator with an EMPTY candidate list: a holder remembered from
-\* an earlier rule does not lower the shortage of a later rule - a phantom shortage that copies nothing.)
-Replicates(d) == \E k \in 1..Len(d.tasks) : Len(d.tasks[k].nodes) > 0
-Quiet(hs) == \A n \in hs : LET d == Decide27(n, hs, {}, {}) IN ~Replicates(d) /\ d.del = "none"
-NoTasks(hs) == \A n \in hs : ~Replicates(Decide27(n, hs, {}, {}))
->\* a check "replicates" when it hands the replicator a task with at least one candidate node. (With overlapping
-\* rules the code as found keeps calling the replicator with an EMPTY candidate list: a holder remembered from
-\* an earlier rule does not lower the shortage of a later rule - a phantom shortage that copies nothing.)
-Replicates(d) == \E k \in 1..Len(d.tasks) : Len(d.tasks[k].nodes) > 0
-Quiet(hs) == \A n \in hs : LET d == Decide27(n, hs, {}, {}) IN ~Replicates(d) /\ d.del = "none"
-NoTasks(hs) == \A n \in hs : ~Replicates(Decide27(n, hs, {}, {}))
->\* a check "replicates" when it hands the replicator a task with at least one candidate node. (With overlapping
-\* rules the code as found keeps calling the replicator with an EMPTY candidate list: a holder remembered from
-\* an earlier rule does not lower the shortage of a later rule - a phantom shortage that copies nothing.)
-Replicates(d) == \E k \in 1..Len(d.tasks) : Len(d.tasks[k].nodes) > 0
-Quiet(hs) == \A n \in hs : LET d == Decide27(n, hs, {}, {}) IN ~Replicates(d) /\ d.del = "none"
-NoTasks(hs) == \A n \in hs : ~Replicates(Decide27(n, hs, {}, {}))
-
-\* a check "replicates" when it hands the replicator a task with at least one candidate node. (With overlapping
-\* rules the code as found keeps calling the replicator with an EMPTY candidate list: a holder remembered from
-\* an earlier rule does not lower the shortage of a later rule - a phantom shortage that copies nothing.)
-Replicates(d) == \E k \in 1..Len(d.tasks) : Len(d.tasks[k].nodes) > 0
-Quiet(hs) == \A n \in hs : LET d == Decide27(n, hs, {}, {}) IN ~Replicates(d) /\ d.del = "none"
-NoTasks(hs) == \A n \in hs : ~Replicates(Decide27(n, hs, {}, {}))
- \* a check "replicates" when it hands the replicator a task with at least one candidate node. (With overlapping
-\* rules the code as found keeps calling the replicator with an EMPTY candidate list: a holder remembered from
-\* an earlier rule does not lower the shortage of a later rule - a phantom shortage that copies nothing.)
-Replicates(d) == \E k \in 1..Len(d.tasks) : Len(d.tasks[k].nodes) > 0
-Quiet(hs) == \A n \in hs : LET d == Decide27(n, hs, {}, {}) IN ~Replicates(d) /\ d.del = "none"
-NoTasks(hs) == \A n \in hs : ~Replicates(Decide27(n, hs, {}, {}))
- \* a check "replicates" when it hands the replicator a task with at least one candidate node. (With overlapping
-\* rules the code as found keeps calling the replicator with an EMPTY candidate list: a holder remembered from
-\* an earlier rule does not lower the shortage of a later rule - a phantom shortage that copies nothing.)
-Replicates(d) == \E k \in 1..Len(d.tasks) : Len(d.tasks[k].nodes) > 0
-Quiet(hs) == \A n \in hs : LET d == Decide27(n, hs, {}, {}) IN ~Replicates(d) /\ d.del = "none"
-NoTasks(hs) == \A n \in hs : ~Replicates(Decide27(n, hs, {}, {}))
- \* a check "replicates" when it hands the replicator a task with at least one candidate node. (With overlapping
-\* rules the code as found keeps calling the replicator with an EMPTY candidate list: a holder remembered from
-\* an earlier rule does not lower the shortage of a later rule - a phantom shortage that copies nothing.)
-Replicates(d) == \E k \in 1..Len(d.tasks) : Len(d.tasks[k].nodes) > 0
-Quiet(hs) == \A n \in hs : LET d == Decide27(n, hs, {}, {}) IN ~Replicates(d) /\ d.del = "none"
-NoTasks(hs) == \A n \in hs : ~Replicates(Decide27(n, hs, {}, {}))
- \* a check "replicates" when it hands the replicator a task with at least one candidate node. (With overlapping
-\* rules the code as found keeps calling the replicator with an EMPTY candidate list: a holder remembered from
-\* an earlier rule does not lower the shortage of a later rule - a phantom shortage that copies nothing.)
-Replicates(d) == \E k \in 1..Len(d.tasks) : Len(d.tasks[k].nodes) > 0
-Quiet(hs) == \A n \in hs : LET d == Decide27(n, hs, {}, {}) IN ~Replicates(d) /\ d.del = "none"
-NoTasks(hs) == \A n \in hs : ~Replicates(Decide27(n, hs, {}, {}))
- \* a check "replicates" when it hands the replicator a task with at least one candidate node. (With overlapping
-\* rules the code as found keeps calling the replicator with an EMPTY candidate list: a holder remembered from
-\* an earlier rule does not lower the shortage of a later rule - a phantom shortage that copies nothing.)
-Replicates(d) == \E k \in 1..Len(d.tasks) : Len(d.tasks[k].nodes) > 0
-Quiet(hs) == \A n \in hs : LET d == Decide27(n, hs, {}, {}) IN ~Replicates(d) /\ d.del = "none"
-NoTasks(hs) == \A n \in hs : ~Replicates(Decide27(n, hs, {}, {}))
- \* a check "replicates" when it hands the replicator a task with at least one candidate node. (With overlapping
-\* rules the code as found keeps calling the replicator with an EMPTY candidate list: a holder remembered from
-\* an earlier rule does not lower the shortage of a later rule - a phantom shortage that copies nothing.)
-Replicates(d) == \E k \in 1..Len(d.tasks) : Len(d.tasks[k].nodes) > 0
-Quiet(hs) == \A n \in hs : LET d == Decide27(n, hs, {}, {}) IN ~Replicates(d) /\ d.del = "none"
-NoTasks(hs) == \A n \in hs : ~Replicates(Decide27(n, hs, {}, {}))
- \* a check "replicates" when it hands the replicator a task with at least one candidate node. (With overlapping
-\* rules the code as found keeps calling the replicator with an EMPTY candidate list: a holder remembered from
-\* an earlier rule does not lower the shortage of a later rule - a phantom shortage that copies nothing.)
-Replicates(d) == \E k \in 1..Len(d.tasks) : Len(d.tasks[k].nodes) > 0
-Quiet(hs) == \A n \in hs : LET d == Decide27(n, hs, {}, {}) IN ~Replicates(d) /\ d.del = "none"
-NoTasks(hs) == \A n \in hs : ~Replicates(Decide27(n, hs, {}, {}))
- \* a check "replicates" when it hands the replicator a task with at least one candidate node. (With overlapping
-\* rules the code as found keeps calling the replicator with an EMPTY candidate list: a holder remembered from
-\* an earlier rule does not lower the shortage of a later rule - a phantom shortage that copies nothing.)
-Replicates(d) == \E k \in 1..Len(d.tasks) : Len(d.tasks[k].nodes) > 0
-Quiet(hs) == \A n \in hs : LET d == Decide27(n, hs, {}, {}) IN ~Replicates(d) /\ d.del = "none"
-NoTasks(hs) == \A n \in hs : ~Replicates(Decide27(n, hs, {}, {}))
- \* a check "replicates" when it hands the replicator a task with at least one candidate node. (With overlapping
-\* rules the code as found keeps calling the replicator with an EMPTY candidate list: a holder remembered from
-\* an earlier rule does not lower the shortage of a later rule - a phantom shortage that copies nothing.)
-Replicates(d) == \E k \in 1..Len(d.tasks) : Len(d.tasks[k].nodes) > 0
-Quiet(hs) == \A n \in hs : LET d == Decide27(n, hs, {}, {}) IN ~Replicates(d) /\ d.del = "none"
-NoTasks(hs) == \A n \in hs : ~Replicates(Decide27(n, hs, {}, {}))
- \* a check "replicates" when it hands the replicator a task with at least one candidate node. (With overlapping
-\* rules the code as found keeps calling the replicator with an EMPTY candidate list: a holder remembered from
-\* an earlier rule does not lower the shortage of a later rule - a phantom shortage that copies nothing.)
-Replicates(d) == \E k \in 1..Len(d.tasks) : Len(d.tasks[k].nodes) > 0
-Quiet(hs) == \A n \in hs : LET d == Decide27(n, hs, {}, {}) IN ~Replicates(d) /\ d.del = "none"
-NoTasks(hs) == \A n \in hs : ~Replicates(Decide27(n, hs, {}, {}))
- \* a check "replicates" when it hands the replicator a task with at least one candidate node. (With overlapping
-\* rules the code as found keeps calling the replicator with an EMPTY candidate list: a holder remembered from
-\* an earlier rule does not lower the shortage of a later rule - a phantom shortage that copies nothing.)
-Replicates(d) == \E k \in 1..Len(d.tasks) : Len(d.tasks[k].nodes) > 0
-Quiet(hs) == \A n \in hs : LET d == Decide27(n, hs, {}, {}) IN ~Replicates(d) /\ d.del = "none"
-NoTasks(hs) == \A n \in hs : ~Replicates(Decide27(n, hs, {}, {}))
- \* a check "replicates" when it hands the replicator a task with at least one candidate node. (With overlapping
-\* rules the code as found keeps calling the replicator with an EMPTY candidate list: a holder remembered from
-\* an earlier rule does not lower the shortage of a later rule - a phantom shortage that copies nothing.)
-Replicates(d) == \E k \in 1..Len(d.tasks) : Len(d.tasks[k].nodes) > 0
-Quiet(hs) == \A n \in hs : LET d == Decide27(n, hs, {}, {}) IN ~Replicates(d) /\ d.del = "none"
-NoTasks(hs) == \A n \in hs : ~Replicates(Decide27(n, hs, {}, {}))
- \* a check "replicates" when it hands the replicator a task with at least one candidate node. (With overlapping
-\* rules the code as found keeps calling the replicator with an EMPTY candidate list: a holder remembered from
-\* an earlier rule does not lower the shortage of a later rule - a phantom shortage that copies nothing.)
-Replicates(d) == \E k \in 1..Len(d.tasks) : Len(d.tasks[k].nodes) > 0
-Quiet(hs) == \A n \in hs : LET d == Decide27(n, hs, {}, {}) IN ~Replicates(d) /\ d.del = "none"
-NoTasks(hs) == \A n \in hs : ~Replicates(Decide27(n, hs, {}, {}))
-/\* a check "replicates" when it hands the replicator a task with at least one candidate node. (With overlapping
-\* rules the code as found keeps calling the replicator with an EMPTY candidate list: a holder remembered from
-\* an earlier rule does not lower the shortage of a later rule - a phantom shortage that copies nothing.)
-Replicates(d) == \E k \in 1..Len(d.tasks) : Len(d.tasks[k].nodes) > 0
-Quiet(hs) == \A n \in hs : LET d == Decide27(n, hs, {}, {}) IN ~Replicates(d) /\ d.del = "none"
-NoTasks(hs) == \A n \in hs : ~Replicates(Decide27(n, hs, {}, {}))
-\\* a check "replicates" when it hands the replicator a task with at least one candidate node. (With overlapping
-\* rules the code as found keeps calling the replicator with an EMPTY candidate list: a holder remembered from
-\* an earlier rule does not lower the shortage of a later rule - a phantom shortage that copies nothing.)
-Replicates(d) == \E k \in 1..Len(d.tasks) : Len(d.tasks[k].nodes) > 0
-Quiet(hs) == \A n \in hs : LET d == Decide27(n, hs, {}, {}) IN ~Replicates(d) /\ d.del = "none"
-NoTasks(hs) == \A n \in hs : ~Replicates(Decide27(n, hs, {}, {}))
- \* a check "replicates" when it hands the replicator a task with at least one candidate node. (With overlapping
-\* rules the code as found keeps calling the replicator with an EMPTY candidate list: a holder remembered from
-\* an earlier rule does not lower the shortage of a later rule - a phantom shortage that copies nothing.)
-Replicates(d) == \E k \in 1..Len(d.tasks) : Len(d.tasks[k].nodes) > 0
-Quiet(hs) == \A n \in hs : LET d == Decide27(n, hs, {}, {}) IN ~Replicates(d) /\ d.del = "none"
-NoTasks(hs) == \A n \in hs : ~Replicates(Decide27(n, hs, {}, {}))
-\\* a check "replicates" when it hands the replicator a task with at least one candidate node. (With overlapping
-\* rules the code as found keeps calling the replicator with an EMPTY candidate list: a holder remembered from
-\* an earlier rule does not lower the shortage of a later rule - a phantom shortage that copies nothing.)
-Replicates(d) == \E k \in 1..Len(d.tasks) : Len(d.tasks[k].nodes) > 0
-Quiet(hs) == \A n \in hs : LET d == Decide27(n, hs, {}, {}) IN ~Replicates(d) /\ d.del = "none"
-NoTasks(hs) == \A n \in hs : ~Replicates(Decide27(n, hs, {}, {}))
-A\* a check "replicates" when it hands the replicator a task with at least one candidate node. (With overlapping
-\* rules the code as found keeps calling the replicator with an EMPTY candidate list: a holder remembered from
-\* an earlier rule does not lower the shortage of a later rule - a phantom shortage that copies nothing.)
-Replicates(d) == \E k \in 1..Len(d.tasks) : Len(d.tasks[k].nodes) > 0
-Quiet(hs) == \A n \in hs : LET d == Decide27(n, hs, {}, {}) IN ~Replicates(d) /\ d.del = "none"
-NoTasks(hs) == \A n \in hs : ~Replicates(Decide27(n, hs, {}, {}))
- \* a check "replicates" when it hands the replicator a task with at least one candidate node. (With overlapping
-\* rules the code as found keeps calling the replicator with an EMPTY candidate list: a holder remembered from
-\* an earlier rule does not lower the shortage of a later rule - a phantom shortage that copies nothing.)
-Replicates(d) == \E k \in 1..Len(d.tasks) : Len(d.tasks[k].nodes) > 0
-Quiet(hs) == \A n \in hs : LET d == Decide27(n, hs, {}, {}) IN ~Replicates(d) /\ d.del = "none"
-NoTasks(hs) == \A n \in hs : ~Replicates(Decide27(n, hs, {}, {}))
-n\* a check "replicates" when it hands the replicator a task with at least one candidate node. (With overlapping
-\* rules the code as found keeps calling the replicator with an EMPTY candidate list: a holder remembered from
-\* an earlier rule does not lower the shortage of a later rule - a phantom shortage that copies nothing.)
-Replicates(d) == \E k \in 1..Len(d.tasks) : Len(d.tasks[k].nodes) > 0
-Quiet(hs) == \A n \in hs : LET d == Decide27(n, hs, {}, {}) IN ~Replicates(d) /\ d.del = "none"
-NoTasks(hs) == \A n \in hs : ~Replicates(Decide27(n, hs, {}, {}))
- \* a check "replicates" when it hands the replicator a task with at least one candidate node. (With overlapping
-\* rules the code as found keeps calling the replicator with an EMPTY candidate list: a holder remembered from
-\* an earlier rule does not lower the shortage of a later rule - a phantom shortage that copies nothing.)
-Replicates(d) == \E k \in 1..Len(d.tasks) : Len(d.tasks[k].nodes) > 0
-Quiet(hs) == \A n \in hs : LET d == Decide27(n, hs, {}, {}) IN ~Replicates(d) /\ d.del = "none"
-NoTasks(hs) == \A n \in hs : ~Replicates(Decide27(n, hs, {}, {}))
-\\* a check "replicates" when it hands the replicator a task with at least one candidate node. (With overlapping
-\* rules the code as found keeps calling the replicator with an EMPTY candidate list: a holder remembered from
-\* an earlier rule does not lower the shortage of a later rule - a phantom shortage that copies nothing.)
-Replicates(d) == \E k \in 1..Len(d.tasks) : Len(d.tasks[k].nodes) > 0
-Quiet(hs) == \A n \in hs : LET d == Decide27(n, hs, {}, {}) IN ~Replicates(d) /\ d.del = "none"
-NoTasks(hs) == \A n \in hs : ~Replicates(Decide27(n, hs, {}, {}))
-i\* a check "replicates" when it hands the replicator a task with at least one candidate node. (With overlapping
-\* rules the code as found keeps calling the replicator with an EMPTY candidate list: a holder remembered from
-\* an earlier rule does not lower the shortage of a later rule - a phantom shortage that copies nothing.)
-Replicates(d) == \E k \in 1..Len(d.tasks) : Len(d.tasks[k].nodes) > 0
-Quiet(hs) == \A n \in hs : LET d == Decide27(n, hs, {}, {}) IN ~Replicates(d) /\ d.del = "none"
-NoTasks(hs) == \A n \in hs : ~Replicates(Decide27(n, hs, {}, {}))
-n\* a check "replicates" when it hands the replicator a task with at least one candidate node. (With overlapping
-\* rules the code as found keeps calling the replicator with an EMPTY candidate list: a holder remembered from
-\* an earlier rule does not lower the shortage of a later rule - a phantom shortage that copies nothing.)
-Replicates(d) == \E k \in 1..Len(d.tasks) : Len(d.tasks[k].nodes) > 0
-Quiet(hs) == \A n \in hs : LET d == Decide27(n, hs, {}, {}) IN ~Replicates(d) /\ d.del = "none"
-NoTasks(hs) == \A n \in hs : ~Replicates(Decide27(n, hs, {}, {}))
- \* a check "replicates" when it hands the replicator a task with at least one candidate node. (With overlapping
-\* rules the code as found keeps calling the replicator with an EMPTY candidate list: a holder remembered from
-\* an earlier rule does not lower the shortage of a later rule - a phantom shortage that copies nothing.)
-Replicates(d) == \E k \in 1..Len(d.tasks) : Len(d.tasks[k].nodes) > 0
-Quiet(hs) == \A n \in hs : LET d == Decide27(n, hs, {}, {}) IN ~Replicates(d) /\ d.del = "none"
-NoTasks(hs) == \A n \in hs : ~Replicates(Decide27(n, hs, {}, {}))
-C\* a check "replicates" when it hands the replicator a task with at least one candidate node. (With overlapping
-\* rules the code as found keeps calling the replicator with an EMPTY candidate list: a holder remembered from
-\* an earlier rule does not lower the shortage of a later rule - a phantom shortage that copies nothing.)
-Replicates(d) == \E k \in 1..Len(d.tasks) : Len(d.tasks[k].nodes) > 0
-Quiet(hs) == \A n \in hs : LET d == Decide27(n, hs, {}, {}) IN ~Replicates(d) /\ d.del = "none"
-NoTasks(hs) == \A n \in hs : ~Replicates(Decide27(n, hs, {}, {}))
-l\* a check "replicates" when it hands the replicator a task with at least one candidate node. (With overlapping
-\* rules the code as found keeps calling the replicator with an EMPTY candidate list: a holder remembered from
-\* an earlier rule does not lower the shortage of a later rule - a phantom shortage that copies nothing.)
-Replicates(d) == \E k \in 1..Len(d.tasks) : Len(d.tasks[k].nodes) > 0
-Quiet(hs) == \A n \in hs : LET d == Decide27(n, hs, {}, {}) IN ~Replicates(d) /\ d.del = "none"
-NoTasks(hs) == \A n \in hs : ~Replicates(Decide27(n, hs, {}, {}))
-u\* a check "replicates" when it hands the replicator a task with at least one candidate node. (With overlapping
-\* rules the code as found keeps calling the replicator with an EMPTY candidate list: a holder remembered from
-\* an earlier rule does not lower the shortage of a later rule - a phantom shortage that copies nothing.)
-Replicates(d) == \E k \in 1..Len(d.tasks) : Len(d.tasks[k].nodes) > 0
-Quiet(hs) == \A n \in hs : LET d == Decide27(n, hs, {}, {}) IN ~Replicates(d) /\ d.del = "none"
-NoTasks(hs) == \A n \in hs : ~Replicates(Decide27(n, hs, {}, {}))
-s\* a check "replicates" when it hands the replicator a task with at least one candidate node. (With overlapping
-\* rules the code as found keeps calling the replicator with an EMPTY candidate list: a holder remembered from
-\* an earlier rule does not lower the shortage of a later rule - a phantom shortage that copies nothing.)
-Replicates(d) == \E k \in 1..Len(d.tasks) : Len(d.tasks[k].nodes) > 0
-Quiet(hs) == \A n \in hs : LET d == Decide27(n, hs, {}, {}) IN ~Replicates(d) /\ d.del = "none"
-NoTasks(hs) == \A n \in hs : ~Replicates(Decide27(n, hs, {}, {}))
-t\* a check "replicates" when it hands the replicator a task with at least one candidate node. (With overlapping
-\* rules the code as found keeps calling the replicator with an EMPTY candidate list: a holder remembered from
-\* an earlier rule does not lower the shortage of a later rule - a phantom shortage that copies nothing.)
-Replicates(d) == \E k \in 1..Len(d.tasks) : Len(d.tasks[k].nodes) > 0
-Quiet(hs) == \A n \in hs : LET d == Decide27(n, hs, {}, {}) IN ~Replicates(d) /\ d.del = "none"
-NoTasks(hs) == \A n \in hs : ~Replicates(Decide27(n, hs, {}, {}))
-e\* a check "replicates" when it hands the replicator a task with at least one candidate node. (With overlapping
-\* rules the code as found keeps calling the replicator with an EMPTY candidate list: a holder remembered from
-\* an earlier rule does not lower the shortage of a later rule - a phantom shortage that copies nothing.)
-Replicates(d) == \E k \in 1..Len(d.tasks) : Len(d.tasks[k].nodes) > 0
-Quiet(hs) == \A n \in hs : LET d == Decide27(n, hs, {}, {}) IN ~Replicates(d) /\ d.del = "none"
-NoTasks(hs) == \A n \in hs : ~Replicates(Decide27(n, hs, {}, {}))
-r\* a check "replicates" when it hands the replicator a task with at least one candidate node. (With overlapping
-\* rules the code as found keeps calling the replicator with an EMPTY candidate list: a holder remembered from
-\* an earlier rule does not lower the shortage of a later rule - a phantom shortage that copies nothing.)
-Replicates(d) == \E k \in 1..Len(d.tasks) : Len(d.tasks[k].nodes) > 0
-Quiet(hs) == \A n \in hs : LET d == Decide27(n, hs, {}, {}) IN ~Replicates(d) /\ d.del = "none"
-NoTasks(hs) == \A n \in hs : ~Replicates(Decide27(n, hs, {}, {}))
- \* a check "replicates" when it hands the replicator a task with at least one candidate node. (With overlapping
-\* rules the code as found keeps calling the replicator with an EMPTY candidate list: a holder remembered from
-\* an earlier rule does not lower the shortage of a later rule - a phantom shortage that copies nothing.)
-Replicates(d) == \E k \in 1..Len(d.tasks) : Len(d.tasks[k].nodes) > 0
-Quiet(hs) == \A n \in hs : LET d == Decide27(n, hs, {}, {}) IN ~Replicates(d) /\ d.del = "none"
-NoTasks(hs) == \A n \in hs : ~Replicates(Decide27(n, hs, {}, {}))
-:\* a check "replicates" when it hands the replicator a task with at least one candidate node. (With overlapping
-\* rules the code as found keeps calling the replicator with an EMPTY candidate list: a holder remembered from
-\* an earlier rule does not lower the shortage of a later rule - a phantom shortage that copies nothing.)
-Replicates(d) == \E k \in 1..Len(d.tasks) : Len(d.tasks[k].nodes) > 0
-Quiet(hs) == \A n \in hs : LET d == Decide27(n, hs, {}, {}) IN ~Replicates(d) /\ d.del = "none"
-NoTasks(hs) == \A n \in hs : ~Replicates(Decide27(n, hs, {}, {}))
- \* a check "replicates" when it hands the replicator a task with at least one candidate node. (With overlapping
-\* rules the code as found keeps calling the replicator with an EMPTY candidate list: a holder remembered from
-\* an earlier rule does not lower the shortage of a later rule - a phantom shortage that copies nothing.)
-Replicates(d) == \E k \in 1..Len(d.tasks) : Len(d.tasks[k].nodes) > 0
-Quiet(hs) == \A n \in hs : LET d == Decide27(n, hs, {}, {}) IN ~Replicates(d) /\ d.del = "none"
-NoTasks(hs) == \A n \in hs : ~Replicates(Decide27(n, hs, {}, {}))
-W\* a check "replicates" when it hands the replicator a task with at least one candidate node. (With overlapping
-\* rules the code as found keeps calling the replicator with an EMPTY candidate list: a holder remembered from
-\* an earlier rule does not lower the shortage of a later rule - a phantom shortage that copies nothing.)
-Replicates(d) == \E k \in 1..Len(d.tasks) : Len(d.tasks[k].nodes) > 0
-Quiet(hs) == \A n \in hs : LET d == Decide27(n, hs, {}, {}) IN ~Replicates(d) /\ d.del = "none"
-NoTasks(hs) == \A n \in hs : ~Replicates(Decide27(n, hs, {}, {}))
-F\* a check "replicates" when it hands the replicator a task with at least one candidate node. (With overlapping
-\* rules the code as found keeps calling the replicator with an EMPTY candidate list: a holder remembered from
-\* an earlier rule does not lower the shortage of a later rule - a phantom shortage that copies nothing.)
-Replicates(d) == \E k \in 1..Len(d.tasks) : Len(d.tasks[k].nodes) > 0
-Quiet(hs) == \A n \in hs : LET d == Decide27(n, hs, {}, {}) IN ~Replicates(d) /\ d.del = "none"
-NoTasks(hs) == \A n \in hs : ~Replicates(Decide27(n, hs, {}, {}))
-_\* a check "replicates" when it hands the replicator a task with at least one candidate node. (With overlapping
-\* rules the code as found keeps calling the replicator with an EMPTY candidate list: a holder remembered from
-\* an earlier rule does not lower the shortage of a later rule - a phantom shortage that copies nothing.)
-Replicates(d) == \E k \in 1..Len(d.tasks) : Len(d.tasks[k].nodes) > 0
-Quiet(hs) == \A n \in hs : LET d == Decide27(n, hs, {}, {}) IN ~Replicates(d) /\ d.del = "none"
-NoTasks(hs) == \A n \in hs : ~Replicates(Decide27(n, hs, {}, {}))
-<\* a check "replicates" when it hands the replicator a task with at least one candidate node. (With overlapping
-\* rules the code as found keeps calling the replicator with an EMPTY candidate list: a holder remembered from
-\* an earlier rule does not lower the shortage of a later rule - a phantom shortage that copies nothing.)
-Replicates(d) == \E k \in 1..Len(d.tasks) : Len(d.tasks[k].nodes) > 0
-Quiet(hs) == \A n \in hs : LET d == Decide27(n, hs, {}, {}) IN ~Replicates(d) /\ d.del = "none"
-NoTasks(hs) == \A n \in hs : ~Replicates(Decide27(n, hs, {}, {}))
-<\* a check "replicates" when it hands the replicator a task with at least one candidate node. (With overlapping
-\* rules the code as found keeps calling the replicator with an EMPTY candidate list: a holder remembered from
-\* an earlier rule does not lower the shortage of a later rule - a phantom shortage that copies nothing.)
-Replicates(d) == \E k \in 1..Len(d.tasks) : Len(d.tasks[k].nodes) > 0
-Quiet(hs) == \A n \in hs : LET d == Decide27(n, hs, {}, {}) IN ~Replicates(d) /\ d.del = "none"
-NoTasks(hs) == \A n \in hs : ~Replicates(Decide27(n, hs, {}, {}))
-c\* a check "replicates" when it hands the replicator a task with at least one candidate node. (With overlapping
-\* rules the code as found keeps calling the replicator with an EMPTY candidate list: a holder remembered from
-\* an earlier rule does not lower the shortage of a later rule - a phantom shortage that copies nothing.)
-Replicates(d) == \E k \in 1..Len(d.tasks) : Len(d.tasks[k].nodes) > 0
-Quiet(hs) == \A n \in hs : LET d == Decide27(n, hs, {}, {}) IN ~Replicates(d) /\ d.del = "none"
-NoTasks(hs) == \A n \in hs : ~Replicates(Decide27(n, hs, {}, {}))
-v\* a check "replicates" when it hands the replicator a task with at least one candidate node. (With overlapping
-\* rules the code as found keeps calling the replicator with an EMPTY candidate list: a holder remembered from
-\* an earlier rule does not lower the shortage of a later rule - a phantom shortage that copies nothing.)
-Replicates(d) == \E k \in 1..Len(d.tasks) : Len(d.tasks[k].nodes) > 0
-Quiet(hs) == \A n \in hs : LET d == Decide27(n, hs, {}, {}) IN ~Replicates(d) /\ d.del = "none"
-NoTasks(hs) == \A n \in hs : ~Replicates(Decide27(n, hs, {}, {}))
-a\* a check "replicates" when it hands the replicator a task with at least one candidate node. (With overlapping
-\* rules the code as found keeps calling the replicator with an EMPTY candidate list: a holder remembered from
-\* an earlier rule does not lower the shortage of a later rule - a phantom shortage that copies nothing.)
-Replicates(d) == \E k \in 1..Len(d.tasks) : Len(d.tasks[k].nodes) > 0
-Quiet(hs) == \A n \in hs : LET d == Decide27(n, hs, {}, {}) IN ~Replicates(d) /\ d.del = "none"
-NoTasks(hs) == \A n \in hs : ~Replicates(Decide27(n, hs, {}, {}))
-r\* a check "replicates" when it hands the replicator a task with at least one candidate node. (With overlapping
-\* rules the code as found keeps calling the replicator with an EMPTY candidate list: a holder remembered from
-\* an earlier rule does not lower the shortage of a later rule - a phantom shortage that copies nothing.)
-Replicates(d) == \E k \in 1..Len(d.tasks) : Len(d.tasks[k].nodes) > 0
-Quiet(hs) == \A n \in hs : LET d == Decide27(n, hs, {}, {}) IN ~Replicates(d) /\ d.del = "none"
-NoTasks(hs) == \A n \in hs : ~Replicates(Decide27(n, hs, {}, {}))
-s\* a check "replicates" when it hands the replicator a task with at least one candidate node. (With overlapping
-\* rules the code as found keeps calling the replicator with an EMPTY candidate list: a holder remembered from
-\* an earlier rule does not lower the shortage of a later rule - a phantom shortage that copies nothing.)
-Replicates(d) == \E k \in 1..Len(d.tasks) : Len(d.tasks[k].nodes) > 0
-Quiet(hs) == \A n \in hs : LET d == Decide27(n, hs, {}, {}) IN ~Replicates(d) /\ d.del = "none"
-NoTasks(hs) == \A n \in hs : ~Replicates(Decide27(n, hs, {}, {}))
-,\* a check "replicates" when it hands the replicator a task with at least one candidate node. (With overlapping
-\* rules the code as found keeps calling the replicator with an EMPTY candidate list: a holder remembered from
-\* an earlier rule does not lower the shortage of a later rule - a phantom shortage that copies nothing.)
-Replicates(d) == \E k \in 1..Len(d.tasks) : Len(d.tasks[k].nodes) > 0
-Quiet(hs) == \A n \in hs : LET d == Decide27(n, hs, {}, {}) IN ~Replicates(d) /\ d.del = "none"
-NoTasks(hs) == \A n \in hs : ~Replicates(Decide27(n, hs, {}, {}))
- \* a check "replicates" when it hands the replicator a task with at least one candidate node. (With overlapping
-\* rules the code as found keeps calling the replicator with an EMPTY candidate list: a holder remembered from
-\* an earlier rule does not lower the shortage of a later rule - a phantom shortage that copies nothing.)
-Replicates(d) == \E k \in 1..Len(d.tasks) : Len(d.tasks[k].nodes) > 0
-Quiet(hs) == \A n \in hs : LET d == Decide27(n, hs, {}, {}) IN ~Replicates(d) /\ d.del = "none"
-NoTasks(hs) == \A n \in hs : ~Replicates(Decide27(n, hs, {}, {}))
-v\* a check "replicates" when it hands the replicator a task with at least one candidate node. (With overlapping
-\* rules the code as found keeps calling the replicator with an EMPTY candidate list: a holder remembered from
-\* an earlier rule does not lower the shortage of a later rule - a phantom shortage that copies nothing.)
-Replicates(d) == \E k \in 1..Len(d.tasks) : Len(d.tasks[k].nodes) > 0
-Quiet(hs) == \A n \in hs : LET d == Decide27(n, hs, {}, {}) IN ~Replicates(d) /\ d.del = "none"
-NoTasks(hs) == \A n \in hs : ~Replicates(Decide27(n, hs, {}, {}))
-a\* a check "replicates" when it hands the replicator a task with at least one candidate node. (With overlapping
-\* rules the code as found keeps calling the replicator with an EMPTY candidate list: a holder remembered from
-\* an earlier rule does not lower the shortage of a later rule - a phantom shortage that copies nothing.)
-Replicates(d) == \E k \in 1..Len(d.tasks) : Len(d.tasks[k].nodes) > 0
-Quiet(hs) == \A n \in hs : LET d == Decide27(n, hs, {}, {}) IN ~Replicates(d) /\ d.del = "none"
-NoTasks(hs) == \A n \in hs : ~Replicates(Decide27(n, hs, {}, {}))
-r\* a check "replicates" when it hands the replicator a task with at least one candidate node. (With overlapping
-\* rules the code as found keeps calling the replicator with an EMPTY candidate list: a holder remembered from
-\* an earlier rule does not lower the shortage of a later rule - a phantom shortage that copies nothing.)
-Replicates(d) == \E k \in 1..Len(d.tasks) : Len(d.tasks[k].nodes) > 0
-Quiet(hs) == \A n \in hs : LET d == Decide27(n, hs, {}, {}) IN ~Replicates(d) /\ d.del = "none"
-NoTasks(hs) == \A n \in hs : ~Replicates(Decide27(n, hs, {}, {}))
-s\* a check "replicates" when it hands the replicator a task with at least one candidate node. (With overlapping
-\* rules the code as found keeps calling the replicator with an EMPTY candidate list: a holder remembered from
-\* an earlier rule does not lower the shortage of a later rule - a phantom shortage that copies nothing.)
-Replicates(d) == \E k \in 1..Len(d.tasks) : Len(d.tasks[k].nodes) > 0
-Quiet(hs) == \A n \in hs : LET d == Decide27(n, hs, {}, {}) IN ~Replicates(d) /\ d.del = "none"
-NoTasks(hs) == \A n \in hs : ~Replicates(Decide27(n, hs, {}, {}))
->\* a check "replicates" when it hands the replicator a task with at least one candidate node. (With overlapping
-\* rules the code as found keeps calling the replicator with an EMPTY candidate list: a holder remembered from
-\* an earlier rule does not lower the shortage of a later rule - a phantom shortage that copies nothing.)
-Replicates(d) == \E k \in 1..Len(d.tasks) : Len(d.tasks[k].nodes) > 0
-Quiet(hs) == \A n \in hs : LET d == Decide27(n, hs, {}, {}) IN ~Replicates(d) /\ d.del = "none"
-NoTasks(hs) == \A n \in hs : ~Replicates(Decide27(n, hs, {}, {}))
->\* a check "replicates" when it hands the replicator a task with at least one candidate node. (With overlapping
-\* rules the code as found keeps calling the replicator with an EMPTY candidate list: a holder remembered from
-\* an earlier rule does not lower the shortage of a later rule - a phantom shortage that copies nothing.)
-Replicates(d) == \E k \in 1..Len(d.tasks) : Len(d.tasks[k].nodes) > 0
-Quiet(hs) == \A n \in hs : LET d == Decide27(n, hs, {}, {}) IN ~Replicates(d) /\ d.del = "none"
-NoTasks(hs) == \A n \in hs : ~Replicates(Decide27(n, hs, {}, {}))
-(\* a check "replicates" when it hands the replicator a task with at least one candidate node. (With overlapping
-\* rules the code as found keeps calling the replicator with an EMPTY candidate list: a holder remembered from
-\* an earlier rule does not lower the shortage of a later rule - a phantom shortage that copies nothing.)
-Replicates(d) == \E k \in 1..Len(d.tasks) : Len(d.tasks[k].nodes) > 0
-Quiet(hs) == \A n \in hs : LET d == Decide27(n, hs, {}, {}) IN ~Replicates(d) /\ d.del = "none"
-NoTasks(hs) == \A n \in hs : ~Replicates(Decide27(n, hs, {}, {}))
-R\* a check "replicates" when it hands the replicator a task with at least one candidate node. (With overlapping
-\* rules the code as found keeps calling the replicator with an EMPTY candidate list: a holder remembered from
-\* an earlier rule does not lower the shortage of a later rule - a phantom shortage that copies nothing.)
-Replicates(d) == \E k \in 1..Len(d.tasks) : Len(d.tasks[k].nodes) > 0
-Quiet(hs) == \A n \in hs : LET d == Decide27(n, hs, {}, {}) IN ~Replicates(d) /\ d.del = "none"
-NoTasks(hs) == \A n \in hs : ~Replicates(Decide27(n, hs, {}, {}))
-u\* a check "replicates" when it hands the replicator a task with at least one candidate node. (With overlapping
-\* rules the code as found keeps calling the replicator with an EMPTY candidate list: a holder remembered from
-\* an earlier rule does not lower the shortage of a later rule - a phantom shortage that copies nothing.)
-Replicates(d) == \E k \in 1..Len(d.tasks) : Len(d.tasks[k].nodes) > 0
-Quiet(hs) == \A n \in hs : LET d == Decide27(n, hs, {}, {}) IN ~Replicates(d) /\ d.del = "none"
-NoTasks(hs) == \A n \in hs : ~Replicates(Decide27(n, hs, {}, {}))
-n\* a check "replicates" when it hands the replicator a task with at least one candidate node. (With overlapping
-\* rules the code as found keeps calling the replicator with an EMPTY candidate list: a holder remembered from
-\* an earlier rule does not lower the shortage of a later rule - a phantom shortage that copies nothing.)
-Replicates(d) == \E k \in 1..Len(d.tasks) : Len(d.tasks[k].nodes) > 0
-Quiet(hs) == \A n \in hs : LET d == Decide27(n, hs, {}, {}) IN ~Replicates(d) /\ d.del = "none"
-NoTasks(hs) == \A n \in hs : ~Replicates(Decide27(n, hs, {}, {}))
-(\* a check "replicates" when it hands the replicator a task with at least one candidate node. (With overlapping
-\* rules the code as found keeps calling the replicator with an EMPTY candidate list: a holder remembered from
-\* an earlier rule does not lower the shortage of a later rule - a phantom shortage that copies nothing.)
-Replicates(d) == \E k \in 1..Len(d.tasks) : Len(d.tasks[k].nodes) > 0
-Quiet(hs) == \A n \in hs : LET d == Decide27(n, hs, {}, {}) IN ~Replicates(d) /\ d.del = "none"
-NoTasks(hs) == \A n \in hs : ~Replicates(Decide27(n, hs, {}, {}))
-n\* a check "replicates" when it hands the replicator a task with at least one candidate node. (With overlapping
-\* rules the code as found keeps calling the replicator with an EMPTY candidate list: a holder remembered from
-\* an earlier rule does not lower the shortage of a later rule - a phantom shortage that copies nothing.)
-Replicates(d) == \E k \in 1..Len(d.tasks) : Len(d.tasks[k].nodes) > 0
-Quiet(hs) == \A n \in hs : LET d == Decide27(n, hs, {}, {}) IN ~Replicates(d) /\ d.del = "none"
-NoTasks(hs) == \A n \in hs : ~Replicates(Decide27(n, hs, {}, {}))
-)\* a check "replicates" when it hands the replicator a task with at least one candidate node. (With overlapping
-\* rules the code as found keeps calling the replicator with an EMPTY candidate list: a holder remembered from
-\* an earlier rule does not lower the shortage of a later rule - a phantom shortage that copies nothing.)
-Replicates(d) == \E k \in 1..Len(d.tasks) : Len(d.tasks[k].nodes) > 0
-Quiet(hs) == \A n \in hs : LET d == Decide27(n, hs, {}, {}) IN ~Replicates(d) /\ d.del = "none"
-NoTasks(hs) == \A n \in hs : ~Replicates(Decide27(n, hs, {}, {}))
- \* a check "replicates" when it hands the replicator a task with at least one candidate node. (With overlapping
-\* rules the code as found keeps calling the replicator with an EMPTY candidate list: a holder remembered from
-\* an earlier rule does not lower the shortage of a later rule - a phantom shortage that copies nothing.)
-Replicates(d) == \E k \in 1..Len(d.tasks) : Len(d.tasks[k].nodes) > 0
-Quiet(hs) == \A n \in hs : LET d == Decide27(n, hs, {}, {}) IN ~Replicates(d) /\ d.del = "none"
-NoTasks(hs) == \A n \in hs : ~Replicates(Decide27(n, hs, {}, {}))
-/\* a check "replicates" when it hands the replicator a task with at least one candidate node. (With overlapping
-\* rules the code as found keeps calling the replicator with an EMPTY candidate list: a holder remembered from
-\* an earlier rule does not lower the shortage of a later rule - a phantom shortage that copies nothing.)
-Replicates(d) == \E k \in 1..Len(d.tasks) : Len(d.tasks[k].nodes) > 0
-Quiet(hs) == \A n \in hs : LET d == Decide27(n, hs, {}, {}) IN ~Replicates(d) /\ d.del = "none"
-NoTasks(hs) == \A n \in hs : ~Replicates(Decide27(n, hs, {}, {}))
-\\* a check "replicates" when it hands the replicator a task with at least one candidate node. (With overlapping
-\* rules the code as found keeps calling the replicator with an EMPTY candidate list: a holder remembered from
-\* an earlier rule does not lower the shortage of a later rule - a phantom shortage that copies nothing.)
-Replicates(d) == \E k \in 1..Len(d.tasks) : Len(d.tasks[k].nodes) > 0
-Quiet(hs) == \A n \in hs : LET d == Decide27(n, hs, {}, {}) IN ~Replicates(d) /\ d.del = "none"
-NoTasks(hs) == \A n \in hs : ~Replicates(Decide27(n, hs, {}, {}))
- \* a check "replicates" when it hands the replicator a task with at least one candidate node. (With overlapping
-\* rules the code as found keeps calling the replicator with an EMPTY candidate list: a holder remembered from
-\* an earlier rule does not lower the shortage of a later rule - a phantom shortage that copies nothing.)
-Replicates(d) == \E k \in 1..Len(d.tasks) : Len(d.tasks[k].nodes) > 0
-Quiet(hs) == \A n \in hs : LET d == Decide27(n, hs, {}, {}) IN ~Replicates(d) /\ d.del = "none"
-NoTasks(hs) == \A n \in hs : ~Replicates(Decide27(n, hs, {}, {}))
-U\* a check "replicates" when it hands the replicator a task with at least one candidate node. (With overlapping
-\* rules the code as found keeps calling the replicator with an EMPTY candidate list: a holder remembered from
-\* an earlier rule does not lower the shortage of a later rule - a phantom shortage that copies nothing.)
-Replicates(d) == \E k \in 1..Len(d.tasks) : Len(d.tasks[k].nodes) > 0
-Quiet(hs) == \A n \in hs : LET d == Decide27(n, hs, {}, {}) IN ~Replicates(d) /\ d.del = "none"
-NoTasks(hs) == \A n \in hs : ~Replicates(Decide27(n, hs, {}, {}))
-N\* a check "replicates" when it hands the replicator a task with at least one candidate node. (With overlapping
-\* rules the code as found keeps calling the replicator with an EMPTY candidate list: a holder remembered from
-\* an earlier rule does not lower the shortage of a later rule - a phantom shortage that copies nothing.)
-Replicates(d) == \E k \in 1..Len(d.tasks) : Len(d.tasks[k].nodes) > 0
-Quiet(hs) == \A n \in hs : LET d == Decide27(n, hs, {}, {}) IN ~Replicates(d) /\ d.del = "none"
-NoTasks(hs) == \A n \in hs : ~Replicates(Decide27(n, hs, {}, {}))
-C\* a check "replicates" when it hands the replicator a task with at least one candidate node. (With overlapping
-\* rules the code as found keeps calling the replicator with an EMPTY candidate list: a holder remembered from
-\* an earlier rule does not lower the shortage of a later rule - a phantom shortage that copies nothing.)
-Replicates(d) == \E k \in 1..Len(d.tasks) : Len(d.tasks[k].nodes) > 0
-Quiet(hs) == \A n \in hs : LET d == Decide27(n, hs, {}, {}) IN ~Replicates(d) /\ d.del = "none"
-NoTasks(hs) == \A n \in hs : ~Replicates(Decide27(n, hs, {}, {}))
-H\* a check "replicates" when it hands the replicator a task with at least one candidate node. (With overlapping
-\* rules the code as found keeps calling the replicator with an EMPTY candidate list: a holder remembered from
-\* an earlier rule does not lower the shortage of a later rule - a phantom shortage that copies nothing.)
-Replicates(d) == \E k \in 1..Len(d.tasks) : Len(d.tasks[k].nodes) > 0
-Quiet(hs) == \A n \in hs : LET d == Decide27(n, hs, {}, {}) IN ~Replicates(d) /\ d.del = "none"
-NoTasks(hs) == \A n \in hs : ~Replicates(Decide27(n, hs, {}, {}))
-A\* a check "replicates" when it hands the replicator a task with at least one candidate node. (With overlapping
-\* rules the code as found keeps calling the replicator with an EMPTY candidate list: a holder remembered from
-\* an earlier rule does not lower the shortage of a later rule - a phantom shortage that copies nothing.)
-Replicates(d) == \E k \in 1..Len(d.tasks) : Len(d.tasks[k].nodes) > 0
-Quiet(hs) == \A n \in hs : LET d == Decide27(n, hs, {}, {}) IN ~Replicates(d) /\ d.del = "none"
-NoTasks(hs) == \A n \in hs : ~Replicates(Decide27(n, hs, {}, {}))
-N\* a check "replicates" when it hands the replicator a task with at least one candidate node. (With overlapping
-\* rules the code as found keeps calling the replicator with an EMPTY candidate list: a holder remembered from
-\* an earlier rule does not lower the shortage of a later rule - a phantom shortage that copies nothing.)
-Replicates(d) == \E k \in 1..Len(d.tasks) : Len(d.tasks[k].nodes) > 0
-Quiet(hs) == \A n \in hs : LET d == Decide27(n, hs, {}, {}) IN ~Replicates(d) /\ d.del = "none"
-NoTasks(hs) == \A n \in hs : ~Replicates(Decide27(n, hs, {}, {}))
-G\* a check "replicates" when it hands the replicator a task with at least one candidate node. (With overlapping
-\* rules the code as found keeps calling the replicator with an EMPTY candidate list: a holder remembered from
-\* an earlier rule does not lower the shortage of a later rule - a phantom shortage that copies nothing.)
-Replicates(d) == \E k \in 1..Len(d.tasks) : Len(d.tasks[k].nodes) > 0
-Quiet(hs) == \A n \in hs : LET d == Decide27(n, hs, {}, {}) IN ~Replicates(d) /\ d.del = "none"
-NoTasks(hs) == \A n \in hs : ~Replicates(Decide27(n, hs, {}, {}))
-E\* a check "replicates" when it hands the replicator a task with at least one candidate node. (With overlapping
-\* rules the code as found keeps calling the replicator with an EMPTY candidate list: a holder remembered from
-\* an earlier rule does not lower the shortage of a later rule - a phantom shortage that copies nothing.)
-Replicates(d) == \E k \in 1..Len(d.tasks) : Len(d.tasks[k].nodes) > 0
-Quiet(hs) == \A n \in hs : LET d == Decide27(n, hs, {}, {}) IN ~Replicates(d) /\ d.del = "none"
-NoTasks(hs) == \A n \in hs : ~Replicates(Decide27(n, hs, {}, {}))
-D\* a check "replicates" when it hands the replicator a task with at least one candidate node. (With overlapping
-\* rules the code as found keeps calling the replicator with an EMPTY candidate list: a holder remembered from
-\* an earlier rule does not lower the shortage of a later rule - a phantom shortage that copies nothing.)
-Replicates(d) == \E k \in 1..Len(d.tasks) : Len(d.tasks[k].nodes) > 0
-Quiet(hs) == \A n \in hs : LET d == Decide27(n, hs, {}, {}) IN ~Replicates(d) /\ d.del = "none"
-NoTasks(hs) == \A n \in hs : ~Replicates(Decide27(n, hs, {}, {}))
- \* a check "replicates" when it hands the replicator a task with at least one candidate node. (With overlapping
-\* rules the code as found keeps calling the replicator with an EMPTY candidate list: a holder remembered from
-\* an earlier rule does not lower the shortage of a later rule - a phantom shortage that copies nothing.)
-Replicates(d) == \E k \in 1..Len(d.tasks) : Len(d.tasks[k].nodes) > 0
-Quiet(hs) == \A n \in hs : LET d == Decide27(n, hs, {}, {}) IN ~Replicates(d) /\ d.del = "none"
-NoTasks(hs) == \A n \in hs : ~Replicates(Decide27(n, hs, {}, {}))
-v\* a check "replicates" when it hands the replicator a task with at least one candidate node. (With overlapping
-\* rules the code as found keeps calling the replicator with an EMPTY candidate list: a holder remembered from
-\* an earlier rule does not lower the shortage of a later rule - a phantom shortage that copies nothing.)
-Replicates(d) == \E k \in 1..Len(d.tasks) : Len(d.tasks[k].nodes) > 0
-Quiet(hs) == \A n \in hs : LET d == Decide27(n, hs, {}, {}) IN ~Replicates(d) /\ d.del = "none"
-NoTasks(hs) == \A n \in hs : ~Replicates(Decide27(n, hs, {}, {}))
-a\* a check "replicates" when it hands the replicator a task with at least one candidate node. (With overlapping
-\* rules the code as found keeps calling the replicator with an EMPTY candidate list: a holder remembered from
-\* an earlier rule does not lower the shortage of a later rule - a phantom shortage that copies nothing.)
-Replicates(d) == \E k \in 1..Len(d.tasks) : Len(d.tasks[k].nodes) > 0
-Quiet(hs) == \A n \in hs : LET d == Decide27(n, hs, {}, {}) IN ~Replicates(d) /\ d.del = "none"
-NoTasks(hs) == \A n \in hs : ~Replicates(Decide27(n, hs, {}, {}))
-r\* a check "replicates" when it hands the replicator a task with at least one candidate node. (With overlapping
-\* rules the code as found keeps calling the replicator with an EMPTY candidate list: a holder remembered from
-\* an earlier rule does not lower the shortage of a later rule - a phantom shortage that copies nothing.)
-Replicates(d) == \E k \in 1..Len(d.tasks) : Len(d.tasks[k].nodes) > 0
-Quiet(hs) == \A n \in hs : LET d == Decide27(n, hs, {}, {}) IN ~Replicates(d) /\ d.del = "none"
-NoTasks(hs) == \A n \in hs : ~Replicates(Decide27(n, hs, {}, {}))
-s\* a check "replicates" when it hands the replicator a task with at least one candidate node. (With overlapping
-\* rules the code as found keeps calling the replicator with an EMPTY candidate list: a holder remembered from
-\* an earlier rule does not lower the shortage of a later rule - a phantom shortage that copies nothing.)
-Replicates(d) == \E k \in 1..Len(d.tasks) : Len(d.tasks[k].nodes) > 0
-Quiet(hs) == \A n \in hs : LET d == Decide27(n, hs, {}, {}) IN ~Replicates(d) /\ d.del = "none"
-NoTasks(hs) == \A n \in hs : ~Replicates(Decide27(n, hs, {}, {}))
-)\* a check "replicates" when it hands the replicator a task with at least one candidate node. (With overlapping
-\* rules the code as found keeps calling the replicator with an EMPTY candidate list: a holder remembered from
-\* an earlier rule does not lower the shortage of a later rule - a phantom shortage that copies nothing.)
-Replicates(d) == \E k \in 1..Len(d.tasks) : Len(d.tasks[k].nodes) > 0
-Quiet(hs) == \A n \in hs : LET d == Decide27(n, hs, {}, {}) IN ~Replicates(d) /\ d.del = "none"
-NoTasks(hs) == \A n \in hs : ~Replicates(Decide27(n, hs, {}, {}))
-
-\* a check "replicates" when it hands the replicator a task with at least one candidate node. (With overlapping
-\* rules the code as found keeps calling the replicator with an EMPTY candidate list: a holder remembered from
-\* an earlier rule does not lower the shortage of a later rule - a phantom shortage that copies nothing.)
-Replicates(d) == \E k \in 1..Len(d.tasks) : Len(d.tasks[k].nodes) > 0
-Quiet(hs) == \A n \in hs : LET d == Decide27(n, hs, {}, {}) IN ~Replicates(d) /\ d.del = "none"
-NoTasks(hs) == \A n \in hs : ~Replicates(Decide27(n, hs, {}, {}))
-R\* a check "replicates" when it hands the replicator a task with at least one candidate node. (With overlapping
-\* rules the code as found keeps calling the replicator with an EMPTY candidate list: a holder remembered from
-\* an earlier rule does not lower the shortage of a later rule - a phantom shortage that copies nothing.)
-Replicates(d) == \E k \in 1..Len(d.tasks) : Len(d.tasks[k].nodes) > 0
-Quiet(hs) == \A n \in hs : LET d == Decide27(n, hs, {}, {}) IN ~Replicates(d) /\ d.del = "none"
-NoTasks(hs) == \A n \in hs : ~Replicates(Decide27(n, hs, {}, {}))
-o\* a check "replicates" when it hands the replicator a task with at least one candidate node. (With overlapping
-\* rules the code as found keeps calling the replicator with an EMPTY candidate list: a holder remembered from
-\* an earlier rule does not lower the shortage of a later rule - a phantom shortage that copies nothing.)
-Replicates(d) == \E k \in 1..Len(d.tasks) : Len(d.tasks[k].nodes) > 0
-Quiet(hs) == \A n \in hs : LET d == Decide27(n, hs, {}, {}) IN ~Replicates(d) /\ d.del = "none"
-NoTasks(hs) == \A n \in hs : ~Replicates(Decide27(n, hs, {}, {}))
-u\* a check "replicates" when it hands the replicator a task with at least one candidate node. (With overlapping
-\* rules the code as found keeps calling the replicator with an EMPTY candidate list: a holder remembered from
-\* an earlier rule does not lower the shortage of a later rule - a phantom shortage that copies nothing.)
-Replicates(d) == \E k \in 1..Len(d.tasks) : Len(d.tasks[k].nodes) > 0
-Quiet(hs) == \A n \in hs : LET d == Decide27(n, hs, {}, {}) IN ~Replicates(d) /\ d.del = "none"
-NoTasks(hs) == \A n \in hs : ~Replicates(Decide27(n, hs, {}, {}))
-n\* a check "replicates" when it hands the replicator a task with at least one candidate node. (With overlapping
-\* rules the code as found keeps calling the replicator with an EMPTY candidate list: a holder remembered from
-\* an earlier rule does not lower the shortage of a later rule - a phantom shortage that copies nothing.)
-Replicates(d) == \E k \in 1..Len(d.tasks) : Len(d.tasks[k].nodes) > 0
-Quiet(hs) == \A n \in hs : LET d == Decide27(n, hs, {}, {}) IN ~Replicates(d) /\ d.del = "none"
-NoTasks(hs) == \A n \in hs : ~Replicates(Decide27(n, hs, {}, {}))
-d\* a check "replicates" when it hands the replicator a task with at least one candidate node. (With overlapping
-\* rules the code as found keeps calling the replicator with an EMPTY candidate list: a holder remembered from
-\* an earlier rule does not lower the shortage of a later rule - a phantom shortage that copies nothing.)
-Replicates(d) == \E k \in 1..Len(d.tasks) : Len(d.tasks[k].nodes) > 0
-Quiet(hs) == \A n \in hs : LET d == Decide27(n, hs, {}, {}) IN ~Replicates(d) /\ d.del = "none"
-NoTasks(hs) == \A n \in hs : ~Replicates(Decide27(n, hs, {}, {}))
-s\* a check "replicates" when it hands the replicator a task with at least one candidate node. (With overlapping
-\* rules the code as found keeps calling the replicator with an EMPTY candidate list: a holder remembered from
-\* an earlier rule does not lower the shortage of a later rule - a phantom shortage that copies nothing.)
-Replicates(d) == \E k \in 1..Len(d.tasks) : Len(d.tasks[k].nodes) > 0
-Quiet(hs) == \A n \in hs : LET d == Decide27(n, hs, {}, {}) IN ~Replicates(d) /\ d.del = "none"
-NoTasks(hs) == \A n \in hs : ~Replicates(Decide27(n, hs, {}, {}))
- \* a check "replicates" when it hands the replicator a task with at least one candidate node. (With overlapping
-\* rules the code as found keeps calling the replicator with an EMPTY candidate list: a holder remembered from
-\* an earlier rule does not lower the shortage of a later rule - a phantom shortage that copies nothing.)
-Replicates(d) == \E k \in 1..Len(d.tasks) : Len(d.tasks[k].nodes) > 0
-Quiet(hs) == \A n \in hs : LET d == Decide27(n, hs, {}, {}) IN ~Replicates(d) /\ d.del = "none"
-NoTasks(hs) == \A n \in hs : ~Replicates(Decide27(n, hs, {}, {}))
-=\* a check "replicates" when it hands the replicator a task with at least one candidate node. (With overlapping
-\* rules the code as found keeps calling the replicator with an EMPTY candidate list: a holder remembered from
-\* an earlier rule does not lower the shortage of a later rule - a phantom shortage that copies nothing.)
-Replicates(d) == \E k \in 1..Len(d.tasks) : Len(d.tasks[k].nodes) > 0
-Quiet(hs) == \A n \in hs : LET d == Decide27(n, hs, {}, {}) IN ~Replicates(d) /\ d.del = "none"
-NoTasks(hs) == \A n \in hs : ~Replicates(Decide27(n, hs, {}, {}))
-=\* a check "replicates" when it hands the replicator a task with at least one candidate node. (With overlapping
-\* rules the code as found keeps calling the replicator with an EMPTY candidate list: a holder remembered from
-\* an earlier rule does not lower the shortage of a later rule - a phantom shortage that copies nothing.)
-Replicates(d) == \E k \in 1..Len(d.tasks) : Len(d.tasks[k].nodes) > 0
-Quiet(hs) == \A n \in hs : LET d == Decide27(n, hs, {}, {}) IN ~Replicates(d) /\ d.del = "none"
-NoTasks(hs) == \A n \in hs : ~Replicates(Decide27(n, hs, {}, {}))
- \* a check "replicates" when it hands the replicator a task with at least one candidate node. (With overlapping
-\* rules the code as found keeps calling the replicator with an EMPTY candidate list: a holder remembered from
-\* an earlier rule does not lower the shortage of a later rule - a phantom shortage that copies nothing.)
-Replicates(d) == \E k \in 1..Len(d.tasks) : Len(d.tasks[k].nodes) > 0
-Quiet(hs) == \A n \in hs : LET d == Decide27(n, hs, {}, {}) IN ~Replicates(d) /\ d.del = "none"
-NoTasks(hs) == \A n \in hs : ~Replicates(Decide27(n, hs, {}, {}))
-C\* a check "replicates" when it hands the replicator a task with at least one candidate node. (With overlapping
-\* rules the code as found keeps calling the replicator with an EMPTY candidate list: a holder remembered from
-\* an earlier rule does not lower the shortage of a later rule - a phantom shortage that copies nothing.)
-Replicates(d) == \E k \in 1..Len(d.tasks) : Len(d.tasks[k].nodes) > 0
-Quiet(hs) == \A n \in hs : LET d == Decide27(n, hs, {}, {}) IN ~Replicates(d) /\ d.del = "none"
-NoTasks(hs) == \A n \in hs : ~Replicates(Decide27(n, hs, {}, {}))
-I\* a check "replicates" when it hands the replicator a task with at least one candidate node. (With overlapping
-\* rules the code as found keeps calling the replicator with an EMPTY candidate list: a holder remembered from
-\* an earlier rule does not lower the shortage of a later rule - a phantom shortage that copies nothing.)
-Replicates(d) == \E k \in 1..Len(d.tasks) : Len(d.tasks[k].nodes) > 0
-Quiet(hs) == \A n \in hs : LET d == Decide27(n, hs, {}, {}) IN ~Replicates(d) /\ d.del = "none"
-NoTasks(hs) == \A n \in hs : ~Replicates(Decide27(n, hs, {}, {}))
-n\* a check "replicates" when it hands the replicator a task with at least one candidate node. (With overlapping
-\* rules the code as found keeps calling the replicator with an EMPTY candidate list: a holder remembered from
-\* an earlier rule does not lower the shortage of a later rule - a phantom shortage that copies nothing.)
-Replicates(d) == \E k \in 1..Len(d.tasks) : Len(d.tasks[k].nodes) > 0
-Quiet(hs) == \A n \in hs : LET d == Decide27(n, hs, {}, {}) IN ~Replicates(d) /\ d.del = "none"
-NoTasks(hs) == \A n \in hs : ~Replicates(Decide27(n, hs, {}, {}))
-i\* a check "replicates" when it hands the replicator a task with at least one candidate node. (With overlapping
-\* rules the code as found keeps calling the replicator with an EMPTY candidate list: a holder remembered from
-\* an earlier rule does not lower the shortage of a later rule - a phantom shortage that copies nothing.)
-Replicates(d) == \E k \in 1..Len(d.tasks) : Len(d.tasks[k].nodes) > 0
-Quiet(hs) == \A n \in hs : LET d == Decide27(n, hs, {}, {}) IN ~Replicates(d) /\ d.del = "none"
-NoTasks(hs) == \A n \in hs : ~Replicates(Decide27(n, hs, {}, {}))
-t\* a check "replicates" when it hands the replicator a task with at least one candidate node. (With overlapping
-\* rules the code as found keeps calling the replicator with an EMPTY candidate list: a holder remembered from
-\* an earlier rule does not lower the shortage of a later rule - a phantom shortage that copies nothing.)
-Replicates(d) == \E k \in 1..Len(d.tasks) : Len(d.tasks[k].nodes) > 0
-Quiet(hs) == \A n \in hs : LET d == Decide27(n, hs, {}, {}) IN ~Replicates(d) /\ d.del = "none"
-NoTasks(hs) == \A n \in hs : ~Replicates(Decide27(n, hs, {}, {}))
- \* a check "replicates" when it hands the replicator a task with at least one candidate node. (With overlapping
-\* rules the code as found keeps calling the replicator with an EMPTY candidate list: a holder remembered from
-\* an earlier rule does not lower the shortage of a later rule - a phantom shortage that copies nothing.)
-Replicates(d) == \E k \in 1..Len(d.tasks) : Len(d.tasks[k].nodes) > 0
-Quiet(hs) == \A n \in hs : LET d == Decide27(n, hs, {}, {}) IN ~Replicates(d) /\ d.del = "none"
-NoTasks(hs) == \A n \in hs : ~Replicates(Decide27(n, hs, {}, {}))
-/\* a check "replicates" when it hands the replicator a task with at least one candidate node. (With overlapping
-\* rules the code as found keeps calling the replicator with an EMPTY candidate list: a holder remembered from
-\* an earlier rule does not lower the shortage of a later rule - a phantom shortage that copies nothing.)
-Replicates(d) == \E k \in 1..Len(d.tasks) : Len(d.tasks[k].nodes) > 0
-Quiet(hs) == \A n \in hs : LET d == Decide27(n, hs, {}, {}) IN ~Replicates(d) /\ d.del = "none"
-NoTasks(hs) == \A n \in hs : ~Replicates(Decide27(n, hs, {}, {}))
-\\* a check "replicates" when it hands the replicator a task with at least one candidate node. (With overlapping
-\* rules the code as found keeps calling the replicator with an EMPTY candidate list: a holder remembered from
-\* an earlier rule does not lower the shortage of a later rule - a phantom shortage that copies nothing.)
-Replicates(d) == \E k \in 1..Len(d.tasks) : Len(d.tasks[k].nodes) > 0
-Quiet(hs) == \A n \in hs : LET d == Decide27(n, hs, {}, {}) IN ~Replicates(d) /\ d.del = "none"
-NoTasks(hs) == \A n \in hs : ~Replicates(Decide27(n, hs, {}, {}))
- \* a check "replicates" when it hands the replicator a task with at least one candidate node. (With overlapping
-\* rules the code as found keeps calling the replicator with an EMPTY candidate list: a holder remembered from
-\* an earlier rule does not lower the shortage of a later rule - a phantom shortage that copies nothing.)
-Replicates(d) == \E k \in 1..Len(d.tasks) : Len(d.tasks[k].nodes) > 0
-Quiet(hs) == \A n \in hs : LET d == Decide27(n, hs, {}, {}) IN ~Replicates(d) /\ d.del = "none"
-NoTasks(hs) == \A n \in hs : ~Replicates(Decide27(n, hs, {}, {}))
-[\* a check "replicates" when it hands the replicator a task with at least one candidate node. (With overlapping
-\* rules the code as found keeps calling the replicator with an EMPTY candidate list: a holder remembered from
-\* an earlier rule does not lower the shortage of a later rule - a phantom shortage that copies nothing.)
-Replicates(d) == \E k \in 1..Len(d.tasks) : Len(d.tasks[k].nodes) > 0
-Quiet(hs) == \A n \in hs : LET d == Decide27(n, hs, {}, {}) IN ~Replicates(d) /\ d.del = "none"
-NoTasks(hs) == \A n \in hs : ~Replicates(Decide27(n, hs, {}, {}))
-]\* a check "replicates" when it hands the replicator a task with at least one candidate node. (With overlapping
-\* rules the code as found keeps calling the replicator with an EMPTY candidate list: a holder remembered from
-\* an earlier rule does not lower the shortage of a later rule - a phantom shortage that copies nothing.)
-Replicates(d) == \E k \in 1..Len(d.tasks) : Len(d.tasks[k].nodes) > 0
-Quiet(hs) == \A n \in hs : LET d == Decide27(n, hs, {}, {}) IN ~Replicates(d) /\ d.del = "none"
-NoTasks(hs) == \A n \in hs : ~Replicates(Decide27(n, hs, {}, {}))
-[\* a check "replicates" when it hands the replicator a task with at least one candidate node. (With overlapping
-\* rules the code as found keeps calling the replicator with an EMPTY candidate list: a holder remembered from
-\* an earlier rule does not lower the shortage of a later rule - a phantom shortage that copies nothing.)
-Replicates(d) == \E k \in 1..Len(d.tasks) : Len(d.tasks[k].nodes) > 0
-Quiet(hs) == \A n \in hs : LET d == Decide27(n, hs, {}, {}) IN ~Replicates(d) /\ d.del = "none"
-NoTasks(hs) == \A n \in hs : ~Replicates(Decide27(n, hs, {}, {}))
-\\* a check "replicates" when it hands the replicator a task with at least one candidate node. (With overlapping
-\* rules the code as found keeps calling the replicator with an EMPTY candidate list: a holder remembered from
-\* an earlier rule does not lower the shortage of a later rule - a phantom shortage that copies nothing.)
-Replicates(d) == \E k \in 1..Len(d.tasks) : Len(d.tasks[k].nodes) > 0
-Quiet(hs) == \A n \in hs : LET d == Decide27(n, hs, {}, {}) IN ~Replicates(d) /\ d.del = "none"
-NoTasks(hs) == \A n \in hs : ~Replicates(Decide27(n, hs, {}, {}))
-E\* a check "replicates" when it hands the replicator a task with at least one candidate node. (With overlapping
-\* rules the code as found keeps calling the replicator with an EMPTY candidate list: a holder remembered from
-\* an earlier rule does not lower the shortage of a later rule - a phantom shortage that copies nothing.)
-Replicates(d) == \E k \in 1..Len(d.tasks) : Len(d.tasks[k].nodes) > 0
-Quiet(hs) == \A n \in hs : LET d == Decide27(n, hs, {}, {}) IN ~Replicates(d) /\ d.del = "none"
-NoTasks(hs) == \A n \in hs : ~Replicates(Decide27(n, hs, {}, {}))
- \* a check "replicates" when it hands the replicator a task with at least one candidate node. (With overlapping
-\* rules the code as found keeps calling the replicator with an EMPTY candidate list: a holder remembered from
-\* an earlier rule does not lower the shortage of a later rule - a phantom shortage that copies nothing.)
-Replicates(d) == \E k \in 1..Len(d.tasks) : Len(d.tasks[k].nodes) > 0
-Quiet(hs) == \A n \in hs : LET d == Decide27(n, hs, {}, {}) IN ~Replicates(d) /\ d.del = "none"
-NoTasks(hs) == \A n \in hs : ~Replicates(Decide27(n, hs, {}, {}))
-n\* a check "replicates" when it hands the replicator a task with at least one candidate node. (With overlapping
-\* rules the code as found keeps calling the replicator with an EMPTY candidate list: a holder remembered from
-\* an earlier rule does not lower the shortage of a later rule - a phantom shortage that copies nothing.)
-Replicates(d) == \E k \in 1..Len(d.tasks) : Len(d.tasks[k].nodes) > 0
-Quiet(hs) == \A n \in hs : LET d == Decide27(n, hs, {}, {}) IN ~Replicates(d) /\ d.del = "none"
-NoTasks(hs) == \A n \in hs : ~Replicates(Decide27(n, hs, {}, {}))
- \* a check "replicates" when it hands the replicator a task with at least one candidate node. (With overlapping
-\* rules the code as found keeps calling the replicator with an EMPTY candidate list: a holder remembered from
-\* an earlier rule does not lower the shortage of a later rule - a phantom shortage that copies nothing.)
-Replicates(d) == \E k \in 1..Len(d.tasks) : Len(d.tasks[k].nodes) > 0
-Quiet(hs) == \A n \in hs : LET d == Decide27(n, hs, {}, {}) IN ~Replicates(d) /\ d.del = "none"
-NoTasks(hs) == \A n \in hs : ~Replicates(Decide27(n, hs, {}, {}))
-\\* a check "replicates" when it hands the replicator a task with at least one candidate node. (With overlapping
-\* rules the code as found keeps calling the replicator with an EMPTY candidate list: a holder remembered from
-\* an earlier rule does not lower the shortage of a later rule - a phantom shortage that copies nothing.)
-Replicates(d) == \E k \in 1..Len(d.tasks) : Len(d.tasks[k].nodes) > 0
-Quiet(hs) == \A n \in hs : LET d == Decide27(n, hs, {}, {}) IN ~Replicates(d) /\ d.del = "none"
-NoTasks(hs) == \A n \in hs : ~Replicates(Decide27(n, hs, {}, {}))
-i\* a check "replicates" when it hands the replicator a task with at least one candidate node. (With overlapping
-\* rules the code as found keeps calling the replicator with an EMPTY candidate list: a holder remembered from
-\* an earlier rule does not lower the shortage of a later rule - a phantom shortage that copies nothing.)
-Replicates(d) == \E k \in 1..Len(d.tasks) : Len(d.tasks[k].nodes) > 0
-Quiet(hs) == \A n \in hs : LET d == Decide27(n, hs, {}, {}) IN ~Replicates(d) /\ d.del = "none"
-NoTasks(hs) == \A n \in hs : ~Replicates(Decide27(n, hs, {}, {}))
-n\* a check "replicates" when it hands the replicator a task with at least one candidate node. (With overlapping
-\* rules the code as found keeps calling the replicator with an EMPTY candidate list: a holder remembered from
-\* an earlier rule does not lower the shortage of a later rule - a phantom shortage that copies nothing.)
-Replicates(d) == \E k \in 1..Len(d.tasks) : Len(d.tasks[k].nodes) > 0
-Quiet(hs) == \A n \in hs : LET d == Decide27(n, hs, {}, {}) IN ~Replicates(d) /\ d.del = "none"
-NoTasks(hs) == \A n \in hs : ~Replicates(Decide27(n, hs, {}, {}))
- \* a check "replicates" when it hands the replicator a task with at least one candidate node. (With overlapping
-\* rules the code as found keeps calling the replicator with an EMPTY candidate list: a holder remembered from
-\* an earlier rule does not lower the shortage of a later rule - a phantom shortage that copies nothing.)
-Replicates(d) == \E k \in 1..Len(d.tasks) : Len(d.tasks[k].nodes) > 0
-Quiet(hs) == \A n \in hs : LET d == Decide27(n, hs, {}, {}) IN ~Replicates(d) /\ d.del = "none"
-NoTasks(hs) == \A n \in hs : ~Replicates(Decide27(n, hs, {}, {}))
-C\* a check "replicates" when it hands the replicator a task with at least one candidate node. (With overlapping
-\* rules the code as found keeps calling the replicator with an EMPTY candidate list: a holder remembered from
-\* an earlier rule does not lower the shortage of a later rule - a phantom shortage that copies nothing.)
-Replicates(d) == \E k \in 1..Len(d.tasks) : Len(d.tasks[k].nodes) > 0
-Quiet(hs) == \A n \in hs : LET d == Decide27(n, hs, {}, {}) IN ~Replicates(d) /\ d.del = "none"
-NoTasks(hs) == \A n \in hs : ~Replicates(Decide27(n, hs, {}, {}))
-l\* a check "replicates" when it hands the replicator a task with at least one candidate node. (With overlapping
-\* rules the code as found keeps calling the replicator with an EMPTY candidate list: a holder remembered from
-\* an earlier rule does not lower the shortage of a later rule - a phantom shortage that copies nothing.)
-Replicates(d) == \E k \in 1..Len(d.tasks) : Len(d.tasks[k].nodes) > 0
-Quiet(hs) == \A n \in hs : LET d == Decide27(n, hs, {}, {}) IN ~Replicates(d) /\ d.del = "none"
-NoTasks(hs) == \A n \in hs : ~Replicates(Decide27(n, hs, {}, {}))
-u\* a check "replicates" when it hands the replicator a task with at least one candidate node. (With overlapping
-\* rules the code as found keeps calling the replicator with an EMPTY candidate list: a holder remembered from
-\* an earlier rule does not lower the shortage of a later rule - a phantom shortage that copies nothing.)
-Replicates(d) == \E k \in 1..Len(d.tasks) : Len(d.tasks[k].nodes) > 0
-Quiet(hs) == \A n \in hs : LET d == Decide27(n, hs, {}, {}) IN ~Replicates(d) /\ d.del = "none"
-NoTasks(hs) == \A n \in hs : ~Replicates(Decide27(n, hs, {}, {}))
-s\* a check "replicates" when it hands the replicator a task with at least one candidate node. (With overlapping
-\* rules the code as found keeps calling the replicator with an EMPTY candidate list: a holder remembered from
-\* an earlier rule does not lower the shortage of a later rule - a phantom shortage that copies nothing.)
-Replicates(d) == \E k \in 1..Len(d.tasks) : Len(d.tasks[k].nodes) > 0
-Quiet(hs) == \A n \in hs : LET d == Decide27(n, hs, {}, {}) IN ~Replicates(d) /\ d.del = "none"
-NoTasks(hs) == \A n \in hs : ~Replicates(Decide27(n, hs, {}, {}))
-t\* a check "replicates" when it hands the replicator a task with at least one candidate node. (With overlapping
-\* rules the code as found keeps calling the replicator with an EMPTY candidate list: a holder remembered from
-\* an earlier rule does not lower the shortage of a later rule - a phantom shortage that copies nothing.)
-Replicates(d) == \E k \in 1..Len(d.tasks) : Len(d.tasks[k].nodes) > 0
-Quiet(hs) == \A n \in hs : LET d == Decide27(n, hs, {}, {}) IN ~Replicates(d) /\ d.del = "none"
-NoTasks(hs) == \A n \in hs : ~Replicates(Decide27(n, hs, {}, {}))
-e\* a check "replicates" when it hands the replicator a task with at least one candidate node. (With overlapping
-\* rules the code as found keeps calling the replicator with an EMPTY candidate list: a holder remembered from
-\* an earlier rule does not lower the shortage of a later rule - a phantom shortage that copies nothing.)
-Replicates(d) == \E k \in 1..Len(d.tasks) : Len(d.tasks[k].nodes) > 0
-Quiet(hs) == \A n \in hs : LET d == Decide27(n, hs, {}, {}) IN ~Replicates(d) /\ d.del = "none"
-NoTasks(hs) == \A n \in hs : ~Replicates(Decide27(n, hs, {}, {}))
-r\* a check "replicates" when it hands the replicator a task with at least one candidate node. (With overlapping
-\* rules the code as found keeps calling the replicator with an EMPTY candidate list: a holder remembered from
-\* an earlier rule does not lower the shortage of a later rule - a phantom shortage that copies nothing.)
-Replicates(d) == \E k \in 1..Len(d.tasks) : Len(d.tasks[k].nodes) > 0
-Quiet(hs) == \A n \in hs : LET d == Decide27(n, hs, {}, {}) IN ~Replicates(d) /\ d.del = "none"
-NoTasks(hs) == \A n \in hs : ~Replicates(Decide27(n, hs, {}, {}))
- \* a check "replicates" when it hands the replicator a task with at least one candidate node. (With overlapping
-\* rules the code as found keeps calling the replicator with an EMPTY candidate list: a holder remembered from
-\* an earlier rule does not lower the shortage of a later rule - a phantom shortage that copies nothing.)
-Replicates(d) == \E k \in 1..Len(d.tasks) : Len(d.tasks[k].nodes) > 0
-Quiet(hs) == \A n \in hs : LET d == Decide27(n, hs, {}, {}) IN ~Replicates(d) /\ d.del = "none"
-NoTasks(hs) == \A n \in hs : ~Replicates(Decide27(n, hs, {}, {}))
-:\* a check "replicates" when it hands the replicator a task with at least one candidate node. (With overlapping
-\* rules the code as found keeps calling the replicator with an EMPTY candidate list: a holder remembered from
-\* an earlier rule does not lower the shortage of a later rule - a phantom shortage that copies nothing.)
-Replicates(d) == \E k \in 1..Len(d.tasks) : Len(d.tasks[k].nodes) > 0
-Quiet(hs) == \A n \in hs : LET d == Decide27(n, hs, {}, {}) IN ~Replicates(d) /\ d.del = "none"
-NoTasks(hs) == \A n \in hs : ~Replicates(Decide27(n, hs, {}, {}))
- \* a check "replicates" when it hands the replicator a task with at least one candidate node. (With overlapping
-\* rules the code as found keeps calling the replicator with an EMPTY candidate list: a holder remembered from
-\* an earlier rule does not lower the shortage of a later rule - a phantom shortage that copies nothing.)
-Replicates(d) == \E k \in 1..Len(d.tasks) : Len(d.tasks[k].nodes) > 0
-Quiet(hs) == \A n \in hs : LET d == Decide27(n, hs, {}, {}) IN ~Replicates(d) /\ d.del = "none"
-NoTasks(hs) == \A n \in hs : ~Replicates(Decide27(n, hs, {}, {}))
-R\* a check "replicates" when it hands the replicator a task with at least one candidate node. (With overlapping
-\* rules the code as found keeps calling the replicator with an EMPTY candidate list: a holder remembered from
-\* an earlier rule does not lower the shortage of a later rule - a phantom shortage that copies nothing.)
-Replicates(d) == \E k \in 1..Len(d.tasks) : Len(d.tasks[k].nodes) > 0
-Quiet(hs) == \A n \in hs : LET d == Decide27(n, hs, {}, {}) IN ~Replicates(d) /\ d.del = "none"
-NoTasks(hs) == \A n \in hs : ~Replicates(Decide27(n, hs, {}, {}))
-o\* a check "replicates" when it hands the replicator a task with at least one candidate node. (With overlapping
-\* rules the code as found keeps calling the replicator with an EMPTY candidate list: a holder remembered from
-\* an earlier rule does not lower the shortage of a later rule - a phantom shortage that copies nothing.)
-Replicates(d) == \E k \in 1..Len(d.tasks) : Len(d.tasks[k].nodes) > 0
-Quiet(hs) == \A n \in hs : LET d == Decide27(n, hs, {}, {}) IN ~Replicates(d) /\ d.del = "none"
-NoTasks(hs) == \A n \in hs : ~Replicates(Decide27(n, hs, {}, {}))
-u\* a check "replicates" when it hands the replicator a task with at least one candidate node. (With overlapping
-\* rules the code as found keeps calling the replicator with an EMPTY candidate list: a holder remembered from
-\* an earlier rule does not lower the shortage of a later rule - a phantom shortage that copies nothing.)
-Replicates(d) == \E k \in 1..Len(d.tasks) : Len(d.tasks[k].nodes) > 0
-Quiet(hs) == \A n \in hs : LET d == Decide27(n, hs, {}, {}) IN ~Replicates(d) /\ d.del = "none"
-NoTasks(hs) == \A n \in hs : ~Replicates(Decide27(n, hs, {}, {}))
-n\* a check "replicates" when it hands the replicator a task with at least one candidate node. (With overlapping
-\* rules the code as found keeps calling the replicator with an EMPTY candidate list: a holder remembered from
-\* an earlier rule does not lower the shortage of a later rule - a phantom shortage that copies nothing.)
-Replicates(d) == \E k \in 1..Len(d.tasks) : Len(d.tasks[k].nodes) > 0
-Quiet(hs) == \A n \in hs : LET d == Decide27(n, hs, {}, {}) IN ~Replicates(d) /\ d.del = "none"
-NoTasks(hs) == \A n \in hs : ~Replicates(Decide27(n, hs, {}, {}))
-d\* a check "replicates" when it hands the replicator a task with at least one candidate node. (With overlapping
-\* rules the code as found keeps calling the replicator with an EMPTY candidate list: a holder remembered from
-\* an earlier rule does not lower the shortage of a later rule - a phantom shortage that copies nothing.)
-Replicates(d) == \E k \in 1..Len(d.tasks) : Len(d.tasks[k].nodes) > 0
-Quiet(hs) == \A n \in hs : LET d == Decide27(n, hs, {}, {}) IN ~Replicates(d) /\ d.del = "none"
-NoTasks(hs) == \A n \in hs : ~Replicates(Decide27(n, hs, {}, {}))
-R\* a check "replicates" when it hands the replicator a task with at least one candidate node. (With overlapping
-\* rules the code as found keeps calling the replicator with an EMPTY candidate list: a holder remembered from
-\* an earlier rule does not lower the shortage of a later rule - a phantom shortage that copies nothing.)
-Replicates(d) == \E k \in 1..Len(d.tasks) : Len(d.tasks[k].nodes) > 0
-Quiet(hs) == \A n \in hs : LET d == Decide27(n, hs, {}, {}) IN ~Replicates(d) /\ d.del = "none"
-NoTasks(hs) == \A n \in hs : ~Replicates(Decide27(n, hs, {}, {}))
-u\* a check "replicates" when it hands the replicator a task with at least one candidate node. (With overlapping
-\* rules the code as found keeps calling the replicator with an EMPTY candidate list: a holder remembered from
-\* an earlier rule does not lower the shortage of a later rule - a phantom shortage that copies nothing.)
-Replicates(d) == \E k \in 1..Len(d.tasks) : Len(d.tasks[k].nodes) > 0
-Quiet(hs) == \A n \in hs : LET d == Decide27(n, hs, {}, {}) IN ~Replicates(d) /\ d.del = "none"
-NoTasks(hs) == \A n \in hs : ~Replicates(Decide27(n, hs, {}, {}))
-n\* a check "replicates" when it hands the replicator a task with at least one candidate node. (With overlapping
-\* rules the code as found keeps calling the replicator with an EMPTY candidate list: a holder remembered from
-\* an earlier rule does not lower the shortage of a later rule - a phantom shortage that copies nothing.)
-Replicates(d) == \E k \in 1..Len(d.tasks) : Len(d.tasks[k].nodes) > 0
-Quiet(hs) == \A n \in hs : LET d == Decide27(n, hs, {}, {}) IN ~Replicates(d) /\ d.del = "none"
-NoTasks(hs) == \A n \in hs : ~Replicates(Decide27(n, hs, {}, {}))
-(\* a check "replicates" when it hands the replicator a task with at least one candidate node. (With overlapping
-\* rules the code as found keeps calling the replicator with an EMPTY candidate list: a holder remembered from
-\* an earlier rule does not lower the shortage of a later rule - a phantom shortage that copies nothing.)
-Replicates(d) == \E k \in 1..Len(d.tasks) : Len(d.tasks[k].nodes) > 0
-Quiet(hs) == \A n \in hs : LET d == Decide27(n, hs, {}, {}) IN ~Replicates(d) /\ d.del = "none"
-NoTasks(hs) == \A n \in hs : ~Replicates(Decide27(n, hs, {}, {}))
-n\* a check "replicates" when it hands the replicator a task with at least one candidate node. (With overlapping
-\* rules the code as found keeps calling the replicator with an EMPTY candidate list: a holder remembered from
-\* an earlier rule does not lower the shortage of a later rule - a phantom shortage that copies nothing.)
-Replicates(d) == \E k \in 1..Len(d.tasks) : Len(d.tasks[k].nodes) > 0
-Quiet(hs) == \A n \in hs : LET d == Decide27(n, hs, {}, {}) IN ~Replicates(d) /\ d.del = "none"
-NoTasks(hs) == \A n \in hs : ~Replicates(Decide27(n, hs, {}, {}))
-)\* a check "replicates" when it hands the replicator a task with at least one candidate node. (With overlapping
-\* rules the code as found keeps calling the replicator with an EMPTY candidate list: a holder remembered from
-\* an earlier rule does not lower the shortage of a later rule - a phantom shortage that copies nothing.)
-Replicates(d) == \E k \in 1..Len(d.tasks) : Len(d.tasks[k].nodes) > 0
-Quiet(hs) == \A n \in hs : LET d == Decide27(n, hs, {}, {}) IN ~Replicates(d) /\ d.del = "none"
-NoTasks(hs) == \A n \in hs : ~Replicates(Decide27(n, hs, {}, {}))
- \* a check "replicates" when it hands the replicator a task with at least one candidate node. (With overlapping
-\* rules the code as found keeps calling the replicator with an EMPTY candidate list: a holder remembered from
-\* an earlier rule does not lower the shortage of a later rule - a phantom shortage that copies nothing.)
-Replicates(d) == \E k \in 1..Len(d.tasks) : Len(d.tasks[k].nodes) > 0
-Quiet(hs) == \A n \in hs : LET d == Decide27(n, hs, {}, {}) IN ~Replicates(d) /\ d.del = "none"
-NoTasks(hs) == \A n \in hs : ~Replicates(Decide27(n, hs, {}, {}))
-/\* a check "replicates" when it hands the replicator a task with at least one candidate node. (With overlapping
-\* rules the code as found keeps calling the replicator with an EMPTY candidate list: a holder remembered from
-\* an earlier rule does not lower the shortage of a later rule - a phantom shortage that copies nothing.)
-Replicates(d) == \E k \in 1..Len(d.tasks) : Len(d.tasks[k].nodes) > 0
-Quiet(hs) == \A n \in hs : LET d == Decide27(n, hs, {}, {}) IN ~Replicates(d) /\ d.del = "none"
-NoTasks(hs) == \A n \in hs : ~Replicates(Decide27(n, hs, {}, {}))
-\\* a check "replicates" when it hands the replicator a task with at least one candidate node. (With overlapping
-\* rules the code as found keeps calling the replicator with an EMPTY candidate list: a holder remembered from
-\* an earlier rule does not lower the shortage of a later rule - a phantom shortage that copies nothing.)
-Replicates(d) == \E k \in 1..Len(d.tasks) : Len(d.tasks[k].nodes) > 0
-Quiet(hs) == \A n \in hs : LET d == Decide27(n, hs, {}, {}) IN ~Replicates(d) /\ d.del = "none"
-NoTasks(hs) == \A n \in hs : ~Replicates(Decide27(n, hs, {}, {}))
- \* a check "replicates" when it hands the replicator a task with at least one candidate node. (With overlapping
-\* rules the code as found keeps calling the replicator with an EMPTY candidate list: a holder remembered from
-\* an earlier rule does not lower the shortage of a later rule - a phantom shortage that copies nothing.)
-Replicates(d) == \E k \in 1..Len(d.tasks) : Len(d.tasks[k].nodes) > 0
-Quiet(hs) == \A n \in hs : LET d == Decide27(n, hs, {}, {}) IN ~Replicates(d) /\ d.del = "none"
-NoTasks(hs) == \A n \in hs : ~Replicates(Decide27(n, hs, {}, {}))
-U\* a check "replicates" when it hands the replicator a task with at least one candidate node. (With overlapping
-\* rules the code as found keeps calling the replicator with an EMPTY candidate list: a holder remembered from
-\* an earlier rule does not lower the shortage of a later rule - a phantom shortage that copies nothing.)
-Replicates(d) == \E k \in 1..Len(d.tasks) : Len(d.tasks[k].nodes) > 0
-Quiet(hs) == \A n \in hs : LET d == Decide27(n, hs, {}, {}) IN ~Replicates(d) /\ d.del = "none"
-NoTasks(hs) == \A n \in hs : ~Replicates(Decide27(n, hs, {}, {}))
-N\* a check "replicates" when it hands the replicator a task with at least one candidate node. (With overlapping
-\* rules the code as found keeps calling the replicator with an EMPTY candidate list: a holder remembered from
-\* an earlier rule does not lower the shortage of a later rule - a phantom shortage that copies nothing.)
-Replicates(d) == \E k \in 1..Len(d.tasks) : Len(d.tasks[k].nodes) > 0
-Quiet(hs) == \A n \in hs : LET d == Decide27(n, hs, {}, {}) IN ~Replicates(d) /\ d.del = "none"
-NoTasks(hs) == \A n \in hs : ~Replicates(Decide27(n, hs, {}, {}))
-C\* a check "replicates" when it hands the replicator a task with at least one candidate node. (With overlapping
-\* rules the code as found keeps calling the replicator with an EMPTY candidate list: a holder remembered from
-\* an earlier rule does not lower the shortage of a later rule - a phantom shortage that copies nothing.)
-Replicates(d) == \E k \in 1..Len(d.tasks) : Len(d.tasks[k].nodes) > 0
-Quiet(hs) == \A n \in hs : LET d == Decide27(n, hs, {}, {}) IN ~Replicates(d) /\ d.del = "none"
-NoTasks(hs) == \A n \in hs : ~Replicates(Decide27(n, hs, {}, {}))
-H\* a check "replicates" when it hands the replicator a task with at least one candidate node. (With overlapping
-\* rules the code as found keeps calling the replicator with an EMPTY candidate list: a holder remembered from
-\* an earlier rule does not lower the shortage of a later rule - a phantom shortage that copies nothing.)
-Replicates(d) == \E k \in 1..Len(d.tasks) : Len(d.tasks[k].nodes) > 0
-Quiet(hs) == \A n \in hs : LET d == Decide27(n, hs, {}, {}) IN ~Replicates(d) /\ d.del = "none"
-NoTasks(hs) == \A n \in hs : ~Replicates(Decide27(n, hs, {}, {}))
-A\* a check "replicates" when it hands the replicator a task with at least one candidate node. (With overlapping
-\* rules the code as found keeps calling the replicator with an EMPTY candidate list: a holder remembered from
-\* an earlier rule does not lower the shortage of a later rule - a phantom shortage that copies nothing.)
-Replicates(d) == \E k \in 1..Len(d.tasks) : Len(d.tasks[k].nodes) > 0
-Quiet(hs) == \A n \in hs : LET d == Decide27(n, hs, {}, {}) IN ~Replicates(d) /\ d.del = "none"
-NoTasks(hs) == \A n \in hs : ~Replicates(Decide27(n, hs, {}, {}))
-N\* a check "replicates" when it hands the replicator a task with at least one candidate node. (With overlapping
-\* rules the code as found keeps calling the replicator with an EMPTY candidate list: a holder remembered from
-\* an earlier rule does not lower the shortage of a later rule - a phantom shortage that copies nothing.)
-Replicates(d) == \E k \in 1..Len(d.tasks) : Len(d.tasks[k].nodes) > 0
-Quiet(hs) == \A n \in hs : LET d == Decide27(n, hs, {}, {}) IN ~Replicates(d) /\ d.del = "none"
-NoTasks(hs) == \A n \in hs : ~Replicates(Decide27(n, hs, {}, {}))
-G\* a check "replicates" when it hands the replicator a task with at least one candidate node. (With overlapping
-\* rules the code as found keeps calling the replicator with an EMPTY candidate list: a holder remembered from
-\* an earlier rule does not lower the shortage of a later rule - a phantom shortage that copies nothing.)
-Replicates(d) == \E k \in 1..Len(d.tasks) : Len(d.tasks[k].nodes) > 0
-Quiet(hs) == \A n \in hs : LET d == Decide27(n, hs, {}, {}) IN ~Replicates(d) /\ d.del = "none"
-NoTasks(hs) == \A n \in hs : ~Replicates(Decide27(n, hs, {}, {}))
-E\* a check "replicates" when it hands the replicator a task with at least one candidate node. (With overlapping
-\* rules the code as found keeps calling the replicator with an EMPTY candidate list: a holder remembered from
-\* an earlier rule does not lower the shortage of a later rule - a phantom shortage that copies nothing.)
-Replicates(d) == \E k \in 1..Len(d.tasks) : Len(d.tasks[k].nodes) > 0
-Quiet(hs) == \A n \in hs : LET d == Decide27(n, hs, {}, {}) IN ~Replicates(d) /\ d.del = "none"
-NoTasks(hs) == \A n \in hs : ~Replicates(Decide27(n, hs, {}, {}))
-D\* a check "replicates" when it hands the replicator a task with at least one candidate node. (With overlapping
-\* rules the code as found keeps calling the replicator with an EMPTY candidate list: a holder remembered from
-\* an earlier rule does not lower the shortage of a later rule - a phantom shortage that copies nothing.)
-Replicates(d) == \E k \in 1..Len(d.tasks) : Len(d.tasks[k].nodes) > 0
-Quiet(hs) == \A n \in hs : LET d == Decide27(n, hs, {}, {}) IN ~Replicates(d) /\ d.del = "none"
-NoTasks(hs) == \A n \in hs : ~Replicates(Decide27(n, hs, {}, {}))
- \* a check "replicates" when it hands the replicator a task with at least one candidate node. (With overlapping
-\* rules the code as found keeps calling the replicator with an EMPTY candidate list: a holder remembered from
-\* an earlier rule does not lower the shortage of a later rule - a phantom shortage that copies nothing.)
-Replicates(d) == \E k \in 1..Len(d.tasks) : Len(d.tasks[k].nodes) > 0
-Quiet(hs) == \A n \in hs : LET d == Decide27(n, hs, {}, {}) IN ~Replicates(d) /\ d.del = "none"
-NoTasks(hs) == \A n \in hs : ~Replicates(Decide27(n, hs, {}, {}))
-v\* a check "replicates" when it hands the replicator a task with at least one candidate node. (With overlapping
-\* rules the code as found keeps calling the replicator with an EMPTY candidate list: a holder remembered from
-\* an earlier rule does not lower the shortage of a later rule - a phantom shortage that copies nothing.)
-Replicates(d) == \E k \in 1..Len(d.tasks) : Len(d.tasks[k].nodes) > 0
-Quiet(hs) == \A n \in hs : LET d == Decide27(n, hs, {}, {}) IN ~Replicates(d) /\ d.del = "none"
-NoTasks(hs) == \A n \in hs : ~Replicates(Decide27(n, hs, {}, {}))
-a\* a check "replicates" when it hands the replicator a task with at least one candidate node. (With overlapping
-\* rules the code as found keeps calling the replicator with an EMPTY candidate list: a holder remembered from
-\* an earlier rule does not lower the shortage of a later rule - a phantom shortage that copies nothing.)
-Replicates(d) == \E k \in 1..Len(d.tasks) : Len(d.tasks[k].nodes) > 0
-Quiet(hs) == \A n \in hs : LET d == Decide27(n, hs, {}, {}) IN ~Replicates(d) /\ d.del = "none"
-NoTasks(hs) == \A n \in hs : ~Replicates(Decide27(n, hs, {}, {}))
-r\* a check "replicates" when it hands the replicator a task with at least one candidate node. (With overlapping
-\* rules the code as found keeps calling the replicator with an EMPTY candidate list: a holder remembered from
-\* an earlier rule does not lower the shortage of a later rule - a phantom shortage that copies nothing.)
-Replicates(d) == \E k \in 1..Len(d.tasks) : Len(d.tasks[k].nodes) > 0
-Quiet(hs) == \A n \in hs : LET d == Decide27(n, hs, {}, {}) IN ~Replicates(d) /\ d.del = "none"
-NoTasks(hs) == \A n \in hs : ~Replicates(Decide27(n, hs, {}, {}))
-s\* a check "replicates" when it hands the replicator a task with at least one candidate node. (With overlapping
-\* rules the code as found keeps calling the replicator with an EMPTY candidate list: a holder remembered from
-\* an earlier rule does not lower the shortage of a later rule - a phantom shortage that copies nothing.)
-Replicates(d) == \E k \in 1..Len(d.tasks) : Len(d.tasks[k].nodes) > 0
-Quiet(hs) == \A n \in hs : LET d == Decide27(n, hs, {}, {}) IN ~Replicates(d) /\ d.del = "none"
-NoTasks(hs) == \A n \in hs : ~Replicates(Decide27(n, hs, {}, {}))
-]\* a check "replicates" when it hands the replicator a task with at least one candidate node. (With overlapping
-\* rules the code as found keeps calling the replicator with an EMPTY candidate list: a holder remembered from
-\* an earlier rule does not lower the shortage of a later rule - a phantom shortage that copies nothing.)
-Replicates(d) == \E k \in 1..Len(d.tasks) : Len(d.tasks[k].nodes) > 0
-Quiet(hs) == \A n \in hs : LET d == Decide27(n, hs, {}, {}) IN ~Replicates(d) /\ d.del = "none"
-NoTasks(hs) == \A n \in hs : ~Replicates(Decide27(n, hs, {}, {}))
-_\* a check "replicates" when it hands the replicator a task with at least one candidate node. (With overlapping
-\* rules the code as found keeps calling the replicator with an EMPTY candidate list: a holder remembered from
-\* an earlier rule does not lower the shortage of a later rule - a phantom shortage that copies nothing.)
-Replicates(d) == \E k \in 1..Len(d.tasks) : Len(d.tasks[k].nodes) > 0
-Quiet(hs) == \A n \in hs : LET d == Decide27(n, hs, {}, {}) IN ~Replicates(d) /\ d.del = "none"
-NoTasks(hs) == \A n \in hs : ~Replicates(Decide27(n, hs, {}, {}))
-<\* a check "replicates" when it hands the replicator a task with at least one candidate node. (With overlapping
-\* rules the code as found keeps calling the replicator with an EMPTY candidate list: a holder remembered from
-\* an earlier rule does not lower the shortage of a later rule - a phantom shortage that copies nothing.)
-Replicates(d) == \E k \in 1..Len(d.tasks) : Len(d.tasks[k].nodes) > 0
-Quiet(hs) == \A n \in hs : LET d == Decide27(n, hs, {}, {}) IN ~Replicates(d) /\ d.del = "none"
-NoTasks(hs) == \A n \in hs : ~Replicates(Decide27(n, hs, {}, {}))
-<\* a check "replicates" when it hands the replicator a task with at least one candidate node. (With overlapping
-\* rules the code as found keeps calling the replicator with an EMPTY candidate list: a holder remembered from
-\* an earlier rule does not lower the shortage of a later rule - a phantom shortage that copies nothing.)
-Replicates(d) == \E k \in 1..Len(d.tasks) : Len(d.tasks[k].nodes) > 0
-Quiet(hs) == \A n \in hs : LET d == Decide27(n, hs, {}, {}) IN ~Replicates(d) /\ d.del = "none"
-NoTasks(hs) == \A n \in hs : ~Replicates(Decide27(n, hs, {}, {}))
-c\* a check "replicates" when it hands the replicator a task with at least one candidate node. (With overlapping
-\* rules the code as found keeps calling the replicator with an EMPTY candidate list: a holder remembered from
-\* an earlier rule does not lower the shortage of a later rule - a phantom shortage that copies nothing.)
-Replicates(d) == \E k \in 1..Len(d.tasks) : Len(d.tasks[k].nodes) > 0
-Quiet(hs) == \A n \in hs : LET d == Decide27(n, hs, {}, {}) IN ~Replicates(d) /\ d.del = "none"
-NoTasks(hs) == \A n \in hs : ~Replicates(Decide27(n, hs, {}, {}))
-v\* a check "replicates" when it hands the replicator a task with at least one candidate node. (With overlapping
-\* rules the code as found keeps calling the replicator with an EMPTY candidate list: a holder remembered from
-\* an earlier rule does not lower the shortage of a later rule - a phantom shortage that copies nothing.)
-Replicates(d) == \E k \in 1..Len(d.tasks) : Len(d.tasks[k].nodes) > 0
-Quiet(hs) == \A n \in hs : LET d == Decide27(n, hs, {}, {}) IN ~Replicates(d) /\ d.del = "none"
-NoTasks(hs) == \A n \in hs : ~Replicates(Decide27(n, hs, {}, {}))
-a\* a check "replicates" when it hands the replicator a task with at least one candidate node. (With overlapping
-\* rules the code as found keeps calling the replicator with an EMPTY candidate list: a holder remembered from
-\* an earlier rule does not lower the shortage of a later rule - a phantom shortage that copies nothing.)
-Replicates(d) == \E k \in 1..Len(d.tasks) : Len(d.tasks[k].nodes) > 0
-Quiet(hs) == \A n \in hs : LET d == Decide27(n, hs, {}, {}) IN ~Replicates(d) /\ d.del = "none"
-NoTasks(hs) == \A n \in hs : ~Replicates(Decide27(n, hs, {}, {}))
-r\* a check "replicates" when it hands the replicator a task with at least one candidate node. (With overlapping
-\* rules the code as found keeps calling the replicator with an EMPTY candidate list: a holder remembered from
-\* an earlier rule does not lower the shortage of a later rule - a phantom shortage that copies nothing.)
-Replicates(d) == \E k \in 1..Len(d.tasks) : Len(d.tasks[k].nodes) > 0
-Quiet(hs) == \A n \in hs : LET d == Decide27(n, hs, {}, {}) IN ~Replicates(d) /\ d.del = "none"
-NoTasks(hs) == \A n \in hs : ~Replicates(Decide27(n, hs, {}, {}))
-s\* a check "replicates" when it hands the replicator a task with at least one candidate node. (With overlapping
-\* rules the code as found keeps calling the replicator with an EMPTY candidate list: a holder remembered from
-\* an earlier rule does not lower the shortage of a later rule - a phantom shortage that copies nothing.)
-Replicates(d) == \E k \in 1..Len(d.tasks) : Len(d.tasks[k].nodes) > 0
-Quiet(hs) == \A n \in hs : LET d == Decide27(n, hs, {}, {}) IN ~Replicates(d) /\ d.del = "none"
-NoTasks(hs) == \A n \in hs : ~Replicates(Decide27(n, hs, {}, {}))
-,\* a check "replicates" when it hands the replicator a task with at least one candidate node. (With overlapping
-\* rules the code as found keeps calling the replicator with an EMPTY candidate list: a holder remembered from
-\* an earlier rule does not lower the shortage of a later rule - a phantom shortage that copies nothing.)
-Replicates(d) == \E k \in 1..Len(d.tasks) : Len(d.tasks[k].nodes) > 0
-Quiet(hs) == \A n \in hs : LET d == Decide27(n, hs, {}, {}) IN ~Replicates(d) /\ d.del = "none"
-NoTasks(hs) == \A n \in hs : ~Replicates(Decide27(n, hs, {}, {}))
- \* a check "replicates" when it hands the replicator a task with at least one candidate node. (With overlapping
-\* rules the code as found keeps calling the replicator with an EMPTY candidate list: a holder remembered from
-\* an earlier rule does not lower the shortage of a later rule - a phantom shortage that copies nothing.)
-Replicates(d) == \E k \in 1..Len(d.tasks) : Len(d.tasks[k].nodes) > 0
-Quiet(hs) == \A n \in hs : LET d == Decide27(n, hs, {}, {}) IN ~Replicates(d) /\ d.del = "none"
-NoTasks(hs) == \A n \in hs : ~Replicates(Decide27(n, hs, {}, {}))
-v\* a check "replicates" when it hands the replicator a task with at least one candidate node. (With overlapping
-\* rules the code as found keeps calling the replicator with an EMPTY candidate list: a holder remembered from
-\* an earlier rule does not lower the shortage of a later rule - a phantom shortage that copies nothing.)
-Replicates(d) == \E k \in 1..Len(d.tasks) : Len(d.tasks[k].nodes) > 0
-Quiet(hs) == \A n \in hs : LET d == Decide27(n, hs, {}, {}) IN ~Replicates(d) /\ d.del = "none"
-NoTasks(hs) == \A n \in hs : ~Replicates(Decide27(n, hs, {}, {}))
-a\* a check "replicates" when it hands the replicator a task with at least one candidate node. (With overlapping
-\* rules the code as found keeps calling the replicator with an EMPTY candidate list: a holder remembered from
-\* an earlier rule does not lower the shortage of a later rule - a phantom shortage that copies nothing.)
-Replicates(d) == \E k \in 1..Len(d.tasks) : Len(d.tasks[k].nodes) > 0
-Quiet(hs) == \A n \in hs : LET d == Decide27(n, hs, {}, {}) IN ~Replicates(d) /\ d.del = "none"
-NoTasks(hs) == \A n \in hs : ~Replicates(Decide27(n, hs, {}, {}))
-r\* a check "replicates" when it hands the replicator a task with at least one candidate node. (With overlapping
-\* rules the code as found keeps calling the replicator with an EMPTY candidate list: a holder remembered from
-\* an earlier rule does not lower the shortage of a later rule - a phantom shortage that copies nothing.)
-Replicates(d) == \E k \in 1..Len(d.tasks) : Len(d.tasks[k].nodes) > 0
-Quiet(hs) == \A n \in hs : LET d == Decide27(n, hs, {}, {}) IN ~Replicates(d) /\ d.del = "none"
-NoTasks(hs) == \A n \in hs : ~Replicates(Decide27(n, hs, {}, {}))
-s\* a check "replicates" when it hands the replicator a task with at least one candidate node. (With overlapping
-\* rules the code as found keeps calling the replicator with an EMPTY candidate list: a holder remembered from
-\* an earlier rule does not lower the shortage of a later rule - a phantom shortage that copies nothing.)
-Replicates(d) == \E k \in 1..Len(d.tasks) : Len(d.tasks[k].nodes) > 0
-Quiet(hs) == \A n \in hs : LET d == Decide27(n, hs, {}, {}) IN ~Replicates(d) /\ d.del = "none"
-NoTasks(hs) == \A n \in hs : ~Replicates(Decide27(n, hs, {}, {}))
->\* a check "replicates" when it hands the replicator a task with at least one candidate node. (With overlapping
-\* rules the code as found keeps calling the replicator with an EMPTY candidate list: a holder remembered from
-\* an earlier rule does not lower the shortage of a later rule - a phantom shortage that copies nothing.)
-Replicates(d) == \E k \in 1..Len(d.tasks) : Len(d.tasks[k].nodes) > 0
-Quiet(hs) == \A n \in hs : LET d == Decide27(n, hs, {}, {}) IN ~Replicates(d) /\ d.del = "none"
-NoTasks(hs) == \A n \in hs : ~Replicates(Decide27(n, hs, {}, {}))
->\* a check "replicates" when it hands the replicator a task with at least one candidate node. (With overlapping
-\* rules the code as found keeps calling the replicator with an EMPTY candidate list: a holder remembered from
-\* an earlier rule does not lower the shortage of a later rule - a phantom shortage that copies nothing.)
-Replicates(d) == \E k \in 1..Len(d.tasks) : Len(d.tasks[k].nodes) > 0
-Quiet(hs) == \A n \in hs : LET d == Decide27(n, hs, {}, {}) IN ~Replicates(d) /\ d.del = "none"
-NoTasks(hs) == \A n \in hs : ~Replicates(Decide27(n, hs, {}, {}))
-
-\* a check "replicates" when it hands the replicator a task with at least one candidate node. (With overlapping
-\* rules the code as found keeps calling the replicator with an EMPTY candidate list: a holder remembered from
-\* an earlier rule does not lower the shortage of a later rule - a phantom shortage that copies nothing.)
-Replicates(d) == \E k \in 1..Len(d.tasks) : Len(d.tasks[k].nodes) > 0
-Quiet(hs) == \A n \in hs : LET d == Decide27(n, hs, {}, {}) IN ~Replicates(d) /\ d.del = "none"
-NoTasks(hs) == \A n \in hs : ~Replicates(Decide27(n, hs, {}, {}))
-
-\* a check "replicates" when it hands the replicator a task with at least one candidate node. (With overlapping
-\* rules the code as found keeps calling the replicator with an EMPTY candidate list: a holder remembered from
-\* an earlier rule does not lower the shortage of a later rule - a phantom shortage that copies nothing.)
-Replicates(d) == \E k \in 1..Len(d.tasks) : Len(d.tasks[k].nodes) > 0
-Quiet(hs) == \A n \in hs : LET d == Decide27(n, hs, {}, {}) IN ~Replicates(d) /\ d.del = "none"
-NoTasks(hs) == \A n \in hs : ~Replicates(Decide27(n, hs, {}, {}))
--\* a check "replicates" when it hands the replicator a task with at least one candidate node. (With overlapping
-\* rules the code as found keeps calling the replicator with an EMPTY candidate list: a holder remembered from
-\* an earlier rule does not lower the shortage of a later rule - a phantom shortage that copies nothing.)
-Replicates(d) == \E k \in 1..Len(d.tasks) : Len(d.tasks[k].nodes) > 0
-Quiet(hs) == \A n \in hs : LET d == Decide27(n, hs, {}, {}) IN ~Replicates(d) /\ d.del = "none"
-NoTasks(hs) == \A n \in hs : ~Replicates(Decide27(n, hs, {}, {}))
--\* a check "replicates" when it hands the replicator a task with at least one candidate node. (With overlapping
-\* rules the code as found keeps calling the replicator with an EMPTY candidate list: a holder remembered from
-\* an earlier rule does not lower the shortage of a later rule - a phantom shortage that copies nothing.)
-Replicates(d) == \E k \in 1..Len(d.tasks) : Len(d.tasks[k].nodes) > 0
-Quiet(hs) == \A n \in hs : LET d == Decide27(n, hs, {}, {}) IN ~Replicates(d) /\ d.del = "none"
-NoTasks(hs) == \A n \in hs : ~Replicates(Decide27(n, hs, {}, {}))
--\* a check "replicates" when it hands the replicator a task with at least one candidate node. (With overlapping
-\* rules the code as found keeps calling the replicator with an EMPTY candidate list: a holder remembered from
-\* an earlier rule does not lower the shortage of a later rule - a phantom shortage that copies nothing.)
-Replicates(d) == \E k \in 1..Len(d.tasks) : Len(d.tasks[k].nodes) > 0
-Quiet(hs) == \A n \in hs : LET d == Decide27(n, hs, {}, {}) IN ~Replicates(d) /\ d.del = "none"
-NoTasks(hs) == \A n \in hs : ~Replicates(Decide27(n, hs, {}, {}))
--\* a check "replicates" when it hands the replicator a task with at least one candidate node. (With overlapping
-\* rules the code as found keeps calling the replicator with an EMPTY candidate list: a holder remembered from
-\* an earlier rule does not lower the shortage of a later rule - a phantom shortage that copies nothing.)
-Replicates(d) == \E k \in 1..Len(d.tasks) : Len(d.tasks[k].nodes) > 0
-Quiet(hs) == \A n \in hs : LET d == Decide27(n, hs, {}, {}) IN ~Replicates(d) /\ d.del = "none"
-NoTasks(hs) == \A n \in hs : ~Replicates(Decide27(n, hs, {}, {}))
--\* a check "replicates" when it hands the replicator a task with at least one candidate node. (With overlapping
-\* rules the code as found keeps calling the replicator with an EMPTY candidate list: a holder remembered from
-\* an earlier rule does not lower the shortage of a later rule - a phantom shortage that copies nothing.)
-Replicates(d) == \E k \in 1..Len(d.tasks) : Len(d.tasks[k].nodes) > 0
-Quiet(hs) == \A n \in hs : LET d == Decide27(n, hs, {}, {}) IN ~Replicates(d) /\ d.del = "none"
-NoTasks(hs) == \A n \in hs : ~Replicates(Decide27(n, hs, {}, {}))
--\* a check "replicates" when it hands the replicator a task with at least one candidate node. (With overlapping
-\* rules the code as found keeps calling the replicator with an EMPTY candidate list: a holder remembered from
-\* an earlier rule does not lower the shortage of a later rule - a phantom shortage that copies nothing.)
-Replicates(d) == \E k \in 1..Len(d.tasks) : Len(d.tasks[k].nodes) > 0
-Quiet(hs) == \A n \in hs : LET d == Decide27(n, hs, {}, {}) IN ~Replicates(d) /\ d.del = "none"
-NoTasks(hs) == \A n \in hs : ~Replicates(Decide27(n, hs, {}, {}))
--\* a check "replicates" when it hands the replicator a task with at least one candidate node. (With overlapping
-\* rules the code as found keeps calling the replicator with an EMPTY candidate list: a holder remembered from
-\* an earlier rule does not lower the shortage of a later rule - a phantom shortage that copies nothing.)
-Replicates(d) == \E k \in 1..Len(d.tasks) : Len(d.tasks[k].nodes) > 0
-Quiet(hs) == \A n \in hs : LET d == Decide27(n, hs, {}, {}) IN ~Replicates(d) /\ d.del = "none"
-NoTasks(hs) == \A n \in hs : ~Replicates(Decide27(n, hs, {}, {}))
--\* a check "replicates" when it hands the replicator a task with at least one candidate node. (With overlapping
-\* rules the code as found keeps calling the replicator with an EMPTY candidate list: a holder remembered from
-\* an earlier rule does not lower the shortage of a later rule - a phantom shortage that copies nothing.)
-Replicates(d) == \E k \in 1..Len(d.tasks) : Len(d.tasks[k].nodes) > 0
-Quiet(hs) == \A n \in hs : LET d == Decide27(n, hs, {}, {}) IN ~Replicates(d) /\ d.del = "none"
-NoTasks(hs) == \A n \in hs : ~Replicates(Decide27(n, hs, {}, {}))
--\* a check "replicates" when it hands the replicator a task with at least one candidate node. (With overlapping
-\* rules the code as found keeps calling the replicator with an EMPTY candidate list: a holder remembered from
-\* an earlier rule does not lower the shortage of a later rule - a phantom shortage that copies nothing.)
-Replicates(d) == \E k \in 1..Len(d.tasks) : Len(d.tasks[k].nodes) > 0
-Quiet(hs) == \A n \in hs : LET d == Decide27(n, hs, {}, {}) IN ~Replicates(d) /\ d.del = "none"
-NoTasks(hs) == \A n \in hs : ~Replicates(Decide27(n, hs, {}, {}))
--\* a check "replicates" when it hands the replicator a task with at least one candidate node. (With overlapping
-\* rules the code as found keeps calling the replicator with an EMPTY candidate list: a holder remembered from
-\* an earlier rule does not lower the shortage of a later rule - a phantom shortage that copies nothing.)
-Replicates(d) == \E k \in 1..Len(d.tasks) : Len(d.tasks[k].nodes) > 0
-Quiet(hs) == \A n \in hs : LET d == Decide27(n, hs, {}, {}) IN ~Replicates(d) /\ d.del = "none"
-NoTasks(hs) == \A n \in hs : ~Replicates(Decide27(n, hs, {}, {}))
--\* a check "replicates" when it hands the replicator a task with at least one candidate node. (With overlapping
-\* rules the code as found keeps calling the replicator with an EMPTY candidate list: a holder remembered from
-\* an earlier rule does not lower the shortage of a later rule - a phantom shortage that copies nothing.)
-Replicates(d) == \E k \in 1..Len(d.tasks) : Len(d.tasks[k].nodes) > 0
-Quiet(hs) == \A n \in hs : LET d == Decide27(n, hs, {}, {}) IN ~Replicates(d) /\ d.del = "none"
-NoTasks(hs) == \A n \in hs : ~Replicates(Decide27(n, hs, {}, {}))
--\* a check "replicates" when it hands the replicator a task with at least one candidate node. (With overlapping
-\* rules the code as found keeps calling the replicator with an EMPTY candidate list: a holder remembered from
-\* an earlier rule does not lower the shortage of a later rule - a phantom shortage that copies nothing.)
-Replicates(d) == \E k \in 1..Len(d.tasks) : Len(d.tasks[k].nodes) > 0
-Quiet(hs) == \A n \in hs : LET d == Decide27(n, hs, {}, {}) IN ~Replicates(d) /\ d.del = "none"
-NoTasks(hs) == \A n \in hs : ~Replicates(Decide27(n, hs, {}, {}))
--\* a check "replicates" when it hands the replicator a task with at least one candidate node. (With overlapping
-\* rules the code as found keeps calling the replicator with an EMPTY candidate list: a holder remembered from
-\* an earlier rule does not lower the shortage of a later rule - a phantom shortage that copies nothing.)
-Replicates(d) == \E k \in 1..Len(d.tasks) : Len(d.tasks[k].nodes) > 0
-Quiet(hs) == \A n \in hs : LET d == Decide27(n, hs, {}, {}) IN ~Replicates(d) /\ d.del = "none"
-NoTasks(hs) == \A n \in hs : ~Replicates(Decide27(n, hs, {}, {}))
--\* a check "replicates" when it hands the replicator a task with at least one candidate node. (With overlapping
-\* rules the code as found keeps calling the replicator with an EMPTY candidate list: a holder remembered from
-\* an earlier rule does not lower the shortage of a later rule - a phantom shortage that copies nothing.)
-Replicates(d) == \E k \in 1..Len(d.tasks) : Len(d.tasks[k].nodes) > 0
-Quiet(hs) == \A n \in hs : LET d == Decide27(n, hs, {}, {}) IN ~Replicates(d) /\ d.del = "none"
-NoTasks(hs) == \A n \in hs : ~Replicates(Decide27(n, hs, {}, {}))
--\* a check "replicates" when it hands the replicator a task with at least one candidate node. (With overlapping
-\* rules the code as found keeps calling the replicator with an EMPTY candidate list: a holder remembered from
-\* an earlier rule does not lower the shortage of a later rule - a phantom shortage that copies nothing.)
-Replicates(d) == \E k \in 1..Len(d.tasks) : Len(d.tasks[k].nodes) > 0
-Quiet(hs) == \A n \in hs : LET d == Decide27(n, hs, {}, {}) IN ~Replicates(d) /\ d.del = "none"
-NoTasks(hs) == \A n \in hs : ~Replicates(Decide27(n, hs, {}, {}))
--\* a check "replicates" when it hands the replicator a task with at least one candidate node. (With overlapping
-\* rules the code as found keeps calling the replicator with an EMPTY candidate list: a holder remembered from
-\* an earlier rule does not lower the shortage of a later rule - a phantom shortage that copies nothing.)
-Replicates(d) == \E k \in 1..Len(d.tasks) : Len(d.tasks[k].nodes) > 0
-Quiet(hs) == \A n \in hs : LET d == Decide27(n, hs, {}, {}) IN ~Replicates(d) /\ d.del = "none"
-NoTasks(hs) == \A n \in hs : ~Replicates(Decide27(n, hs, {}, {}))
--\* a check "replicates" when it hands the replicator a task with at least one candidate node. (With overlapping
-\* rules the code as found keeps calling the replicator with an EMPTY candidate list: a holder remembered from
-\* an earlier rule does not lower the shortage of a later rule - a phantom shortage that copies nothing.)
-Replicates(d) == \E k \in 1..Len(d.tasks) : Len(d.tasks[k].nodes) > 0
-Quiet(hs) == \A n \in hs : LET d == Decide27(n, hs, {}, {}) IN ~Replicates(d) /\ d.del = "none"
-NoTasks(hs) == \A n \in hs : ~Replicates(Decide27(n, hs, {}, {}))
--\* a check "replicates" when it hands the replicator a task with at least one candidate node. (With overlapping
-\* rules the code as found keeps calling the replicator with an EMPTY candidate list: a holder remembered from
-\* an earlier rule does not lower the shortage of a later rule - a phantom shortage that copies nothing.)
-Replicates(d) == \E k \in 1..Len(d.tasks) : Len(d.tasks[k].nodes) > 0
-Quiet(hs) == \A n \in hs : LET d == Decide27(n, hs, {}, {}) IN ~Replicates(d) /\ d.del = "none"
-NoTasks(hs) == \A n \in hs : ~Replicates(Decide27(n, hs, {}, {}))
--\* a check "replicates" when it hands the replicator a task with at least one candidate node. (With overlapping
-\* rules the code as found keeps calling the replicator with an EMPTY candidate list: a holder remembered from
-\* an earlier rule does not lower the shortage of a later rule - a phantom shortage that copies nothing.)
-Replicates(d) == \E k \in 1..Len(d.tasks) : Len(d.tasks[k].nodes) > 0
-Quiet(hs) == \A n \in hs : LET d == Decide27(n, hs, {}, {}) IN ~Replicates(d) /\ d.del = "none"
-NoTasks(hs) == \A n \in hs : ~Replicates(Decide27(n, hs, {}, {}))
--\* a check "replicates" when it hands the replicator a task with at least one candidate node. (With overlapping
-\* rules the code as found keeps calling the replicator with an EMPTY candidate list: a holder remembered from
-\* an earlier rule does not lower the shortage of a later rule - a phantom shortage that copies nothing.)
-Replicates(d) == \E k \in 1..Len(d.tasks) : Len(d.tasks[k].nodes) > 0
-Quiet(hs) == \A n \in hs : LET d == Decide27(n, hs, {}, {}) IN ~Replicates(d) /\ d.del = "none"
-NoTasks(hs) == \A n \in hs : ~Replicates(Decide27(n, hs, {}, {}))
--\* a check "replicates" when it hands the replicator a task with at least one candidate node. (With overlapping
-\* rules the code as found keeps calling the replicator with an EMPTY candidate list: a holder remembered from
-\* an earlier rule does not lower the shortage of a later rule - a phantom shortage that copies nothing.)
-Replicates(d) == \E k \in 1..Len(d.tasks) : Len(d.tasks[k].nodes) > 0
-Quiet(hs) == \A n \in hs : LET d == Decide27(n, hs, {}, {}) IN ~Replicates(d) /\ d.del = "none"
-NoTasks(hs) == \A n \in hs : ~Replicates(Decide27(n, hs, {}, {}))
--\* a check "replicates" when it hands the replicator a task with at least one candidate node. (With overlapping
-\* rules the code as found keeps calling the replicator with an EMPTY candidate list: a holder remembered from
-\* an earlier rule does not lower the shortage of a later rule - a phantom shortage that copies nothing.)
-Replicates(d) == \E k \in 1..Len(d.tasks) : Len(d.tasks[k].nodes) > 0
-Quiet(hs) == \A n \in hs : LET d == Decide27(n, hs, {}, {}) IN ~Replicates(d) /\ d.del = "none"
-NoTasks(hs) == \A n \in hs : ~Replicates(Decide27(n, hs, {}, {}))
--\* a check "replicates" when it hands the replicator a task with at least one candidate node. (With overlapping
-\* rules the code as found keeps calling the replicator with an EMPTY candidate list: a holder remembered from
-\* an earlier rule does not lower the shortage of a later rule - a phantom shortage that copies nothing.)
-Replicates(d) == \E k \in 1..Len(d.tasks) : Len(d.tasks[k].nodes) > 0
-Quiet(hs) == \A n \in hs : LET d == Decide27(n, hs, {}, {}) IN ~Replicates(d) /\ d.del = "none"
-NoTasks(hs) == \A n \in hs : ~Replicates(Decide27(n, hs, {}, {}))
--\* a check "replicates" when it hands the replicator a task with at least one candidate node. (With overlapping
-\* rules the code as found keeps calling the replicator with an EMPTY candidate list: a holder remembered from
-\* an earlier rule does not lower the shortage of a later rule - a phantom shortage that copies nothing.)
-Replicates(d) == \E k \in 1..Len(d.tasks) : Len(d.tasks[k].nodes) > 0
-Quiet(hs) == \A n \in hs : LET d == Decide27(n, hs, {}, {}) IN ~Replicates(d) /\ d.del = "none"
-NoTasks(hs) == \A n \in hs : ~Replicates(Decide27(n, hs, {}, {}))
--\* a check "replicates" when it hands the replicator a task with at least one candidate node. (With overlapping
-\* rules the code as found keeps calling the replicator with an EMPTY candidate list: a holder remembered from
-\* an earlier rule does not lower the shortage of a later rule - a phantom shortage that copies nothing.)
-Replicates(d) == \E k \in 1..Len(d.tasks) : Len(d.tasks[k].nodes) > 0
-Quiet(hs) == \A n \in hs : LET d == Decide27(n, hs, {}, {}) IN ~Replicates(d) /\ d.del = "none"
-NoTasks(hs) == \A n \in hs : ~Replicates(Decide27(n, hs, {}, {}))
--\* a check "replicates" when it hands the replicator a task with at least one candidate node. (With overlapping
-\* rules the code as found keeps calling the replicator with an EMPTY candidate list: a holder remembered from
-\* an earlier rule does not lower the shortage of a later rule - a phantom shortage that copies nothing.)
-Replicates(d) == \E k \in 1..Len(d.tasks) : Len(d.tasks[k].nodes) > 0
-Quiet(hs) == \A n \in hs : LET d == Decide27(n, hs, {}, {}) IN ~Replicates(d) /\ d.del = "none"
-NoTasks(hs) == \A n \in hs : ~Replicates(Decide27(n, hs, {}, {}))
--\* a check "replicates" when it hands the replicator a task with at least one candidate node. (With overlapping
-\* rules the code as found keeps calling the replicator with an EMPTY candidate list: a holder remembered from
-\* an earlier rule does not lower the shortage of a later rule - a phantom shortage that copies nothing.)
-Replicates(d) == \E k \in 1..Len(d.tasks) : Len(d.tasks[k].nodes) > 0
-Quiet(hs) == \A n \in hs : LET d == Decide27(n, hs, {}, {}) IN ~Replicates(d) /\ d.del = "none"
-NoTasks(hs) == \A n \in hs : ~Replicates(Decide27(n, hs, {}, {}))
--\* a check "replicates" when it hands the replicator a task with at least one candidate node. (With overlapping
-\* rules the code as found keeps calling the replicator with an EMPTY candidate list: a holder remembered from
-\* an earlier rule does not lower the shortage of a later rule - a phantom shortage that copies nothing.)
-Replicates(d) == \E k \in 1..Len(d.tasks) : Len(d.tasks[k].nodes) > 0
-Quiet(hs) == \A n \in hs : LET d == Decide27(n, hs, {}, {}) IN ~Replicates(d) /\ d.del = "none"
-NoTasks(hs) == \A n \in hs : ~Replicates(Decide27(n, hs, {}, {}))
--\* a check "replicates" when it hands the replicator a task with at least one candidate node. (With overlapping
-\* rules the code as found keeps calling the replicator with an EMPTY candidate list: a holder remembered from
-\* an earlier rule does not lower the shortage of a later rule - a phantom shortage that copies nothing.)
-Replicates(d) == \E k \in 1..Len(d.tasks) : Len(d.tasks[k].nodes) > 0
-Quiet(hs) == \A n \in hs : LET d == Decide27(n, hs, {}, {}) IN ~Replicates(d) /\ d.del = "none"
-NoTasks(hs) == \A n \in hs : ~Replicates(Decide27(n, hs, {}, {}))
--\* a check "replicates" when it hands the replicator a task with at least one candidate node. (With overlapping
-\* rules the code as found keeps calling the replicator with an EMPTY candidate list: a holder remembered from
-\* an earlier rule does not lower the shortage of a later rule - a phantom shortage that copies nothing.)
-Replicates(d) == \E k \in 1..Len(d.tasks) : Len(d.tasks[k].nodes) > 0
-Quiet(hs) == \A n \in hs : LET d == Decide27(n, hs, {}, {}) IN ~Replicates(d) /\ d.del = "none"
-NoTasks(hs) == \A n \in hs : ~Replicates(Decide27(n, hs, {}, {}))
--\* a check "replicates" when it hands the replicator a task with at least one candidate node. (With overlapping
-\* rules the code as found keeps calling the replicator with an EMPTY candidate list: a holder remembered from
-\* an earlier rule does not lower the shortage of a later rule - a phantom shortage that copies nothing.)
-Replicates(d) == \E k \in 1..Len(d.tasks) : Len(d.tasks[k].nodes) > 0
-Quiet(hs) == \A n \in hs : LET d == Decide27(n, hs, {}, {}) IN ~Replicates(d) /\ d.del = "none"
-NoTasks(hs) == \A n \in hs : ~Replicates(Decide27(n, hs, {}, {}))
--\* a check "replicates" when it hands the replicator a task with at least one candidate node. (With overlapping
-\* rules the code as found keeps calling the replicator with an EMPTY candidate list: a holder remembered from
-\* an earlier rule does not lower the shortage of a later rule - a phantom shortage that copies nothing.)
-Replicates(d) == \E k \in 1..Len(d.tasks) : Len(d.tasks[k].nodes) > 0
-Quiet(hs) == \A n \in hs : LET d == Decide27(n, hs, {}, {}) IN ~Replicates(d) /\ d.del = "none"
-NoTasks(hs) == \A n \in hs : ~Replicates(Decide27(n, hs, {}, {}))
--\* a check "replicates" when it hands the replicator a task with at least one candidate node. (With overlapping
-\* rules the code as found keeps calling the replicator with an EMPTY candidate list: a holder remembered from
-\* an earlier rule does not lower the shortage of a later rule - a phantom shortage that copies nothing.)
-Replicates(d) == \E k \in 1..Len(d.tasks) : Len(d.tasks[k].nodes) > 0
-Quiet(hs) == \A n \in hs : LET d == Decide27(n, hs, {}, {}) IN ~Replicates(d) /\ d.del = "none"
-NoTasks(hs) == \A n \in hs : ~Replicates(Decide27(n, hs, {}, {}))
--\* a check "replicates" when it hands the replicator a task with at least one candidate node. (With overlapping
-\* rules the code as found keeps calling the replicator with an EMPTY candidate list: a holder remembered from
-\* an earlier rule does not lower the shortage of a later rule - a phantom shortage that copies nothing.)
-Replicates(d) == \E k \in 1..Len(d.tasks) : Len(d.tasks[k].nodes) > 0
-Quiet(hs) == \A n \in hs : LET d == Decide27(n, hs, {}, {}) IN ~Replicates(d) /\ d.del = "none"
-NoTasks(hs) == \A n \in hs : ~Replicates(Decide27(n, hs, {}, {}))
--\* a check "replicates" when it hands the replicator a task with at least one candidate node. (With overlapping
-\* rules the code as found keeps calling the replicator with an EMPTY candidate list: a holder remembered from
-\* an earlier rule does not lower the shortage of a later rule - a phantom shortage that copies nothing.)
-Replicates(d) == \E k \in 1..Len(d.tasks) : Len(d.tasks[k].nodes) > 0
-Quiet(hs) == \A n \in hs : LET d == Decide27(n, hs, {}, {}) IN ~Replicates(d) /\ d.del = "none"
-NoTasks(hs) == \A n \in hs : ~Replicates(Decide27(n, hs, {}, {}))
--\* a check "replicates" when it hands the replicator a task with at least one candidate node. (With overlapping
-\* rules the code as found keeps calling the replicator with an EMPTY candidate list: a holder remembered from
-\* an earlier rule does not lower the shortage of a later rule - a phantom shortage that copies nothing.)
-Replicates(d) == \E k \in 1..Len(d.tasks) : Len(d.tasks[k].nodes) > 0
-Quiet(hs) == \A n \in hs : LET d == Decide27(n, hs, {}, {}) IN ~Replicates(d) /\ d.del = "none"
-NoTasks(hs) == \A n \in hs : ~Replicates(Decide27(n, hs, {}, {}))
--\* a check "replicates" when it hands the replicator a task with at least one candidate node. (With overlapping
-\* rules the code as found keeps calling the replicator with an EMPTY candidate list: a holder remembered from
-\* an earlier rule does not lower the shortage of a later rule - a phantom shortage that copies nothing.)
-Replicates(d) == \E k \in 1..Len(d.tasks) : Len(d.tasks[k].nodes) > 0
-Quiet(hs) == \A n \in hs : LET d == Decide27(n, hs, {}, {}) IN ~Replicates(d) /\ d.del = "none"
-NoTasks(hs) == \A n \in hs : ~Replicates(Decide27(n, hs, {}, {}))
--\* a check "replicates" when it hands the replicator a task with at least one candidate node. (With overlapping
-\* rules the code as found keeps calling the replicator with an EMPTY candidate list: a holder remembered from
-\* an earlier rule does not lower the shortage of a later rule - a phantom shortage that copies nothing.)
-Replicates(d) == \E k \in 1..Len(d.tasks) : Len(d.tasks[k].nodes) > 0
-Quiet(hs) == \A n \in hs : LET d == Decide27(n, hs, {}, {}) IN ~Replicates(d) /\ d.del = "none"
-NoTasks(hs) == \A n \in hs : ~Replicates(Decide27(n, hs, {}, {}))
--\* a check "replicates" when it hands the replicator a task with at least one candidate node. (With overlapping
-\* rules the code as found keeps calling the replicator with an EMPTY candidate list: a holder remembered from
-\* an earlier rule does not lower the shortage of a later rule - a phantom shortage that copies nothing.)
-Replicates(d) == \E k \in 1..Len(d.tasks) : Len(d.tasks[k].nodes) > 0
-Quiet(hs) == \A n \in hs : LET d == Decide27(n, hs, {}, {}) IN ~Replicates(d) /\ d.del = "none"
-NoTasks(hs) == \A n \in hs : ~Replicates(Decide27(n, hs, {}, {}))
--\* a check "replicates" when it hands the replicator a task with at least one candidate node. (With overlapping
-\* rules the code as found keeps calling the replicator with an EMPTY candidate list: a holder remembered from
-\* an earlier rule does not lower the shortage of a later rule - a phantom shortage that copies nothing.)
-Replicates(d) == \E k \in 1..Len(d.tasks) : Len(d.tasks[k].nodes) > 0
-Quiet(hs) == \A n \in hs : LET d == Decide27(n, hs, {}, {}) IN ~Replicates(d) /\ d.del = "none"
-NoTasks(hs) == \A n \in hs : ~Replicates(Decide27(n, hs, {}, {}))
--\* a check "replicates" when it hands the replicator a task with at least one candidate node. (With overlapping
-\* rules the code as found keeps calling the replicator with an EMPTY candidate list: a holder remembered from
-\* an earlier rule does not lower the shortage of a later rule - a phantom shortage that copies nothing.)
-Replicates(d) == \E k \in 1..Len(d.tasks) : Len(d.tasks[k].nodes) > 0
-Quiet(hs) == \A n \in hs : LET d == Decide27(n, hs, {}, {}) IN ~Replicates(d) /\ d.del = "none"
-NoTasks(hs) == \A n \in hs : ~Replicates(Decide27(n, hs, {}, {}))
--\* a check "replicates" when it hands the replicator a task with at least one candidate node. (With overlapping
-\* rules the code as found keeps calling the replicator with an EMPTY candidate list: a holder remembered from
-\* an earlier rule does not lower the shortage of a later rule - a phantom shortage that copies nothing.)
-Replicates(d) == \E k \in 1..Len(d.tasks) : Len(d.tasks[k].nodes) > 0
-Quiet(hs) == \A n \in hs : LET d == Decide27(n, hs, {}, {}) IN ~Replicates(d) /\ d.del = "none"
-NoTasks(hs) == \A n \in hs : ~Replicates(Decide27(n, hs, {}, {}))
--\* a check "replicates" when it hands the replicator a task with at least one candidate node. (With overlapping
-\* rules the code as found keeps calling the replicator with an EMPTY candidate list: a holder remembered from
-\* an earlier rule does not lower the shortage of a later rule - a phantom shortage that copies nothing.)
-Replicates(d) == \E k \in 1..Len(d.tasks) : Len(d.tasks[k].nodes) > 0
-Quiet(hs) == \A n \in hs : LET d == Decide27(n, hs, {}, {}) IN ~Replicates(d) /\ d.del = "none"
-NoTasks(hs) == \A n \in hs : ~Replicates(Decide27(n, hs, {}, {}))
--\* a check "replicates" when it hands the replicator a task with at least one candidate node. (With overlapping
-\* rules the code as found keeps calling the replicator with an EMPTY candidate list: a holder remembered from
-\* an earlier rule does not lower the shortage of a later rule - a phantom shortage that copies nothing.)
-Replicates(d) == \E k \in 1..Len(d.tasks) : Len(d.tasks[k].nodes) > 0
-Quiet(hs) == \A n \in hs : LET d == Decide27(n, hs, {}, {}) IN ~Replicates(d) /\ d.del = "none"
-NoTasks(hs) == \A n \in hs : ~Replicates(Decide27(n, hs, {}, {}))
--\* a check "replicates" when it hands the replicator a task with at least one candidate node. (With overlapping
-\* rules the code as found keeps calling the replicator with an EMPTY candidate list: a holder remembered from
-\* an earlier rule does not lower the shortage of a later rule - a phantom shortage that copies nothing.)
-Replicates(d) == \E k \in 1..Len(d.tasks) : Len(d.tasks[k].nodes) > 0
-Quiet(hs) == \A n \in hs : LET d == Decide27(n, hs, {}, {}) IN ~Replicates(d) /\ d.del = "none"
-NoTasks(hs) == \A n \in hs : ~Replicates(Decide27(n, hs, {}, {}))
--\* a check "replicates" when it hands the replicator a task with at least one candidate node. (With overlapping
-\* rules the code as found keeps calling the replicator with an EMPTY candidate list: a holder remembered from
-\* an earlier rule does not lower the shortage of a later rule - a phantom shortage that copies nothing.)
-Replicates(d) == \E k \in 1..Len(d.tasks) : Len(d.tasks[k].nodes) > 0
-Quiet(hs) == \A n \in hs : LET d == Decide27(n, hs, {}, {}) IN ~Replicates(d) /\ d.del = "none"
-NoTasks(hs) == \A n \in hs : ~Replicates(Decide27(n, hs, {}, {}))
--\* a check "replicates" when it hands the replicator a task with at least one candidate node. (With overlapping
-\* rules the code as found keeps calling the replicator with an EMPTY candidate list: a holder remembered from
-\* an earlier rule does not lower the shortage of a later rule - a phantom shortage that copies nothing.)
-Replicates(d) == \E k \in 1..Len(d.tasks) : Len(d.tasks[k].nodes) > 0
-Quiet(hs) == \A n \in hs : LET d == Decide27(n, hs, {}, {}) IN ~Replicates(d) /\ d.del = "none"
-NoTasks(hs) == \A n \in hs : ~Replicates(Decide27(n, hs, {}, {}))
--\* a check "replicates" when it hands the replicator a task with at least one candidate node. (With overlapping
-\* rules the code as found keeps calling the replicator with an EMPTY candidate list: a holder remembered from
-\* an earlier rule does not lower the shortage of a later rule - a phantom shortage that copies nothing.)
-Replicates(d) == \E k \in 1..Len(d.tasks) : Len(d.tasks[k].nodes) > 0
-Quiet(hs) == \A n \in hs : LET d == Decide27(n, hs, {}, {}) IN ~Replicates(d) /\ d.del = "none"
-NoTasks(hs) == \A n \in hs : ~Replicates(Decide27(n, hs, {}, {}))
--\* a check "replicates" when it hands the replicator a task with at least one candidate node. (With overlapping
-\* rules the code as found keeps calling the replicator with an EMPTY candidate list: a holder remembered from
-\* an earlier rule does not lower the shortage of a later rule - a phantom shortage that copies nothing.)
-Replicates(d) == \E k \in 1..Len(d.tasks) : Len(d.tasks[k].nodes) > 0
-Quiet(hs) == \A n \in hs : LET d == Decide27(n, hs, {}, {}) IN ~Replicates(d) /\ d.del = "none"
-NoTasks(hs) == \A n \in hs : ~Replicates(Decide27(n, hs, {}, {}))
--\* a check "replicates" when it hands the replicator a task with at least one candidate node. (With overlapping
-\* rules the code as found keeps calling the replicator with an EMPTY candidate list: a holder remembered from
-\* an earlier rule does not lower the shortage of a later rule - a phantom shortage that copies nothing.)
-Replicates(d) == \E k \in 1..Len(d.tasks) : Len(d.tasks[k].nodes) > 0
-Quiet(hs) == \A n \in hs : LET d == Decide27(n, hs, {}, {}) IN ~Replicates(d) /\ d.del = "none"
-NoTasks(hs) == \A n \in hs : ~Replicates(Decide27(n, hs, {}, {}))
--\* a check "replicates" when it hands the replicator a task with at least one candidate node. (With overlapping
-\* rules the code as found keeps calling the replicator with an EMPTY candidate list: a holder remembered from
-\* an earlier rule does not lower the shortage of a later rule - a phantom shortage that copies nothing.)
-Replicates(d) == \E k \in 1..Len(d.tasks) : Len(d.tasks[k].nodes) > 0
-Quiet(hs) == \A n \in hs : LET d == Decide27(n, hs, {}, {}) IN ~Replicates(d) /\ d.del = "none"
-NoTasks(hs) == \A n \in hs : ~Replicates(Decide27(n, hs, {}, {}))
--\* a check "replicates" when it hands the replicator a task with at least one candidate node. (With overlapping
-\* rules the code as found keeps calling the replicator with an EMPTY candidate list: a holder remembered from
-\* an earlier rule does not lower the shortage of a later rule - a phantom shortage that copies nothing.)
-Replicates(d) == \E k \in 1..Len(d.tasks) : Len(d.tasks[k].nodes) > 0
-Quiet(hs) == \A n \in hs : LET d == Decide27(n, hs, {}, {}) IN ~Replicates(d) /\ d.del = "none"
-NoTasks(hs) == \A n \in hs : ~Replicates(Decide27(n, hs, {}, {}))
--\* a check "replicates" when it hands the replicator a task with at least one candidate node. (With overlapping
-\* rules the code as found keeps calling the replicator with an EMPTY candidate list: a holder remembered from
-\* an earlier rule does not lower the shortage of a later rule - a phantom shortage that copies nothing.)
-Replicates(d) == \E k \in 1..Len(d.tasks) : Len(d.tasks[k].nodes) > 0
-Quiet(hs) == \A n \in hs : LET d == Decide27(n, hs, {}, {}) IN ~Replicates(d) /\ d.del = "none"
-NoTasks(hs) == \A n \in hs : ~Replicates(Decide27(n, hs, {}, {}))
--\* a check "replicates" when it hands the replicator a task with at least one candidate node. (With overlapping
-\* rules the code as found keeps calling the replicator with an EMPTY candidate list: a holder remembered from
-\* an earlier rule does not lower the shortage of a later rule - a phantom shortage that copies nothing.)
-Replicates(d) == \E k \in 1..Len(d.tasks) : Len(d.tasks[k].nodes) > 0
-Quiet(hs) == \A n \in hs : LET d == Decide27(n, hs, {}, {}) IN ~Replicates(d) /\ d.del = "none"
-NoTasks(hs) == \A n \in hs : ~Replicates(Decide27(n, hs, {}, {}))
--\* a check "replicates" when it hands the replicator a task with at least one candidate node. (With overlapping
-\* rules the code as found keeps calling the replicator with an EMPTY candidate list: a holder remembered from
-\* an earlier rule does not lower the shortage of a later rule - a phantom shortage that copies nothing.)
-Replicates(d) == \E k \in 1..Len(d.tasks) : Len(d.tasks[k].nodes) > 0
-Quiet(hs) == \A n \in hs : LET d == Decide27(n, hs, {}, {}) IN ~Replicates(d) /\ d.del = "none"
-NoTasks(hs) == \A n \in hs : ~Replicates(Decide27(n, hs, {}, {}))
--\* a check "replicates" when it hands the replicator a task with at least one candidate node. (With overlapping
-\* rules the code as found keeps calling the replicator with an EMPTY candidate list: a holder remembered from
-\* an earlier rule does not lower the shortage of a later rule - a phantom shortage that copies nothing.)
-Replicates(d) == \E k \in 1..Len(d.tasks) : Len(d.tasks[k].nodes) > 0
-Quiet(hs) == \A n \in hs : LET d == Decide27(n, hs, {}, {}) IN ~Replicates(d) /\ d.del = "none"
-NoTasks(hs) == \A n \in hs : ~Replicates(Decide27(n, hs, {}, {}))
--\* a check "replicates" when it hands the replicator a task with at least one candidate node. (With overlapping
-\* rules the code as found keeps calling the replicator with an EMPTY candidate list: a holder remembered from
-\* an earlier rule does not lower the shortage of a later rule - a phantom shortage that copies nothing.)
-Replicates(d) == \E k \in 1..Len(d.tasks) : Len(d.tasks[k].nodes) > 0
-Quiet(hs) == \A n \in hs : LET d == Decide27(n, hs, {}, {}) IN ~Replicates(d) /\ d.del = "none"
-NoTasks(hs) == \A n \in hs : ~Replicates(Decide27(n, hs, {}, {}))
--\* a check "replicates" when it hands the replicator a task with at least one candidate node. (With overlapping
-\* rules the code as found keeps calling the replicator with an EMPTY candidate list: a holder remembered from
-\* an earlier rule does not lower the shortage of a later rule - a phantom shortage that copies nothing.)
-Replicates(d) == \E k \in 1..Len(d.tasks) : Len(d.tasks[k].nodes) > 0
-Quiet(hs) == \A n \in hs : LET d == Decide27(n, hs, {}, {}) IN ~Replicates(d) /\ d.del = "none"
-NoTasks(hs) == \A n \in hs : ~Replicates(Decide27(n, hs, {}, {}))
--\* a check "replicates" when it hands the replicator a task with at least one candidate node. (With overlapping
-\* rules the code as found keeps calling the replicator with an EMPTY candidate list: a holder remembered from
-\* an earlier rule does not lower the shortage of a later rule - a phantom shortage that copies nothing.)
-Replicates(d) == \E k \in 1..Len(d.tasks) : Len(d.tasks[k].nodes) > 0
-Quiet(hs) == \A n \in hs : LET d == Decide27(n, hs, {}, {}) IN ~Replicates(d) /\ d.del = "none"
-NoTasks(hs) == \A n \in hs : ~Replicates(Decide27(n, hs, {}, {}))
--\* a check "replicates" when it hands the replicator a task with at least one candidate node. (With overlapping
-\* rules the code as found keeps calling the replicator with an EMPTY candidate list: a holder remembered from
-\* an earlier rule does not lower the shortage of a later rule - a phantom shortage that copies nothing.)
-Replicates(d) == \E k \in 1..Len(d.tasks) : Len(d.tasks[k].nodes) > 0
-Quiet(hs) == \A n \in hs : LET d == Decide27(n, hs, {}, {}) IN ~Replicates(d) /\ d.del = "none"
-NoTasks(hs) == \A n \in hs : ~Replicates(Decide27(n, hs, {}, {}))
--\* a check "replicates" when it hands the replicator a task with at least one candidate node. (With overlapping
-\* rules the code as found keeps calling the replicator with an EMPTY candidate list: a holder remembered from
-\* an earlier rule does not lower the shortage of a later rule - a phantom shortage that copies nothing.)
-Replicates(d) == \E k \in 1..Len(d.tasks) : Len(d.tasks[k].nodes) > 0
-Quiet(hs) == \A n \in hs : LET d == Decide27(n, hs, {}, {}) IN ~Replicates(d) /\ d.del = "none"
-NoTasks(hs) == \A n \in hs : ~Replicates(Decide27(n, hs, {}, {}))
--\* a check "replicates" when it hands the replicator a task with at least one candidate node. (With overlapping
-\* rules the code as found keeps calling the replicator with an EMPTY candidate list: a holder remembered from
-\* an earlier rule does not lower the shortage of a later rule - a phantom shortage that copies nothing.)
-Replicates(d) == \E k \in 1..Len(d.tasks) : Len(d.tasks[k].nodes) > 0
-Quiet(hs) == \A n \in hs : LET d == Decide27(n, hs, {}, {}) IN ~Replicates(d) /\ d.del = "none"
-NoTasks(hs) == \A n \in hs : ~Replicates(Decide27(n, hs, {}, {}))
--\* a check "replicates" when it hands the replicator a task with at least one candidate node. (With overlapping
-\* rules the code as found keeps calling the replicator with an EMPTY candidate list: a holder remembered from
-\* an earlier rule does not lower the shortage of a later rule - a phantom shortage that copies nothing.)
-Replicates(d) == \E k \in 1..Len(d.tasks) : Len(d.tasks[k].nodes) > 0
-Quiet(hs) == \A n \in hs : LET d == Decide27(n, hs, {}, {}) IN ~Replicates(d) /\ d.del = "none"
-NoTasks(hs) == \A n \in hs : ~Replicates(Decide27(n, hs, {}, {}))
--\* a check "replicates" when it hands the replicator a task with at least one candidate node. (With overlapping
-\* rules the code as found keeps calling the replicator with an EMPTY candidate list: a holder remembered from
-\* an earlier rule does not lower the shortage of a later rule - a phantom shortage that copies nothing.)
-Replicates(d) == \E k \in 1..Len(d.tasks) : Len(d.tasks[k].nodes) > 0
-Quiet(hs) == \A n \in hs : LET d == Decide27(n, hs, {}, {}) IN ~Replicates(d) /\ d.del = "none"
-NoTasks(hs) == \A n \in hs : ~Replicates(Decide27(n, hs, {}, {}))
--\* a check "replicates" when it hands the replicator a task with at least one candidate node. (With overlapping
-\* rules the code as found keeps calling the replicator with an EMPTY candidate list: a holder remembered from
-\* an earlier rule does not lower the shortage of a later rule - a phantom shortage that copies nothing.)
-Replicates(d) == \E k \in 1..Len(d.tasks) : Len(d.tasks[k].nodes) > 0
-Quiet(hs) == \A n \in hs : LET d == Decide27(n, hs, {}, {}) IN ~Replicates(d) /\ d.del = "none"
-NoTasks(hs) == \A n \in hs : ~Replicates(Decide27(n, hs, {}, {}))
--\* a check "replicates" when it hands the replicator a task with at least one candidate node. (With overlapping
-\* rules the code as found keeps calling the replicator with an EMPTY candidate list: a holder remembered from
-\* an earlier rule does not lower the shortage of a later rule - a phantom shortage that copies nothing.)
-Replicates(d) == \E k \in 1..Len(d.tasks) : Len(d.tasks[k].nodes) > 0
-Quiet(hs) == \A n \in hs : LET d == Decide27(n, hs, {}, {}) IN ~Replicates(d) /\ d.del = "none"
-NoTasks(hs) == \A n \in hs : ~Replicates(Decide27(n, hs, {}, {}))
--\* a check "replicates" when it hands the replicator a task with at least one candidate node. (With overlapping
-\* rules the code as found keeps calling the replicator with an EMPTY candidate list: a holder remembered from
-\* an earlier rule does not lower the shortage of a later rule - a phantom shortage that copies nothing.)
-Replicates(d) == \E k \in 1..Len(d.tasks) : Len(d.tasks[k].nodes) > 0
-Quiet(hs) == \A n \in hs : LET d == Decide27(n, hs, {}, {}) IN ~Replicates(d) /\ d.del = "none"
-NoTasks(hs) == \A n \in hs : ~Replicates(Decide27(n, hs, {}, {}))
--\* a check "replicates" when it hands the replicator a task with at least one candidate node. (With overlapping
-\* rules the code as found keeps calling the replicator with an EMPTY candidate list: a holder remembered from
-\* an earlier rule does not lower the shortage of a later rule - a phantom shortage that copies nothing.)
-Replicates(d) == \E k \in 1..Len(d.tasks) : Len(d.tasks[k].nodes) > 0
-Quiet(hs) == \A n \in hs : LET d == Decide27(n, hs, {}, {}) IN ~Replicates(d) /\ d.del = "none"
-NoTasks(hs) == \A n \in hs : ~Replicates(Decide27(n, hs, {}, {}))
--\* a check "replicates" when it hands the replicator a task with at least one candidate node. (With overlapping
-\* rules the code as found keeps calling the replicator with an EMPTY candidate list: a holder remembered from
-\* an earlier rule does not lower the shortage of a later rule - a phantom shortage that copies nothing.)
-Replicates(d) == \E k \in 1..Len(d.tasks) : Len(d.tasks[k].nodes) > 0
-Quiet(hs) == \A n \in hs : LET d == Decide27(n, hs, {}, {}) IN ~Replicates(d) /\ d.del = "none"
-NoTasks(hs) == \A n \in hs : ~Replicates(Decide27(n, hs, {}, {}))
--\* a check "replicates" when it hands the replicator a task with at least one candidate node. (With overlapping
-\* rules the code as found keeps calling the replicator with an EMPTY candidate list: a holder remembered from
-\* an earlier rule does not lower the shortage of a later rule - a phantom shortage that copies nothing.)
-Replicates(d) == \E k \in 1..Len(d.tasks) : Len(d.tasks[k].nodes) > 0
-Quiet(hs) == \A n \in hs : LET d == Decide27(n, hs, {}, {}) IN ~Replicates(d) /\ d.del = "none"
-NoTasks(hs) == \A n \in hs : ~Replicates(Decide27(n, hs, {}, {}))
--\* a check "replicates" when it hands the replicator a task with at least one candidate node. (With overlapping
-\* rules the code as found keeps calling the replicator with an EMPTY candidate list: a holder remembered from
-\* an earlier rule does not lower the shortage of a later rule - a phantom shortage that copies nothing.)
-Replicates(d) == \E k \in 1..Len(d.tasks) : Len(d.tasks[k].nodes) > 0
-Quiet(hs) == \A n \in hs : LET d == Decide27(n, hs, {}, {}) IN ~Replicates(d) /\ d.del = "none"
-NoTasks(hs) == \A n \in hs : ~Replicates(Decide27(n, hs, {}, {}))
--\* a check "replicates" when it hands the replicator a task with at least one candidate node. (With overlapping
-\* rules the code as found keeps calling the replicator with an EMPTY candidate list: a holder remembered from
-\* an earlier rule does not lower the shortage of a later rule - a phantom shortage that copies nothing.)
-Replicates(d) == \E k \in 1..Len(d.tasks) : Len(d.tasks[k].nodes) > 0
-Quiet(hs) == \A n \in hs : LET d == Decide27(n, hs, {}, {}) IN ~Replicates(d) /\ d.del = "none"
-NoTasks(hs) == \A n \in hs : ~Replicates(Decide27(n, hs, {}, {}))
--\* a check "replicates" when it hands the replicator a task with at least one candidate node. (With overlapping
-\* rules the code as found keeps calling the replicator with an EMPTY candidate list: a holder remembered from
-\* an earlier rule does not lower the shortage of a later rule - a phantom shortage that copies nothing.)
-Replicates(d) == \E k \in 1..Len(d.tasks) : Len(d.tasks[k].nodes) > 0
-Quiet(hs) == \A n \in hs : LET d == Decide27(n, hs, {}, {}) IN ~Replicates(d) /\ d.del = "none"
-NoTasks(hs) == \A n \in hs : ~Replicates(Decide27(n, hs, {}, {}))
--\* a check "replicates" when it hands the replicator a task with at least one candidate node. (With overlapping
-\* rules the code as found keeps calling the replicator with an EMPTY candidate list: a holder remembered from
-\* an earlier rule does not lower the shortage of a later rule - a phantom shortage that copies nothing.)
-Replicates(d) == \E k \in 1..Len(d.tasks) : Len(d.tasks[k].nodes) > 0
-Quiet(hs) == \A n \in hs : LET d == Decide27(n, hs, {}, {}) IN ~Replicates(d) /\ d.del = "none"
-NoTasks(hs) == \A n \in hs : ~Replicates(Decide27(n, hs, {}, {}))
--\* a check "replicates" when it hands the replicator a task with at least one candidate node. (With overlapping
-\* rules the code as found keeps calling the replicator with an EMPTY candidate list: a holder remembered from
-\* an earlier rule does not lower the shortage of a later rule - a phantom shortage that copies nothing.)
-Replicates(d) == \E k \in 1..Len(d.tasks) : Len(d.tasks[k].nodes) > 0
-Quiet(hs) == \A n \in hs : LET d == Decide27(n, hs, {}, {}) IN ~Replicates(d) /\ d.del = "none"
-NoTasks(hs) == \A n \in hs : ~Replicates(Decide27(n, hs, {}, {}))
--\* a check "replicates" when it hands the replicator a task with at least one candidate node. (With overlapping
-\* rules the code as found keeps calling the replicator with an EMPTY candidate list: a holder remembered from
-\* an earlier rule does not lower the shortage of a later rule - a phantom shortage that copies nothing.)
-Replicates(d) == \E k \in 1..Len(d.tasks) : Len(d.tasks[k].nodes) > 0
-Quiet(hs) == \A n \in hs : LET d == Decide27(n, hs, {}, {}) IN ~Replicates(d) /\ d.del = "none"
-NoTasks(hs) == \A n \in hs : ~Replicates(Decide27(n, hs, {}, {}))
--\* a check "replicates" when it hands the replicator a task with at least one candidate node. (With overlapping
-\* rules the code as found keeps calling the replicator with an EMPTY candidate list: a holder remembered from
-\* an earlier rule does not lower the shortage of a later rule - a phantom shortage that copies nothing.)
-Replicates(d) == \E k \in 1..Len(d.tasks) : Len(d.tasks[k].nodes) > 0
-Quiet(hs) == \A n \in hs : LET d == Decide27(n, hs, {}, {}) IN ~Replicates(d) /\ d.del = "none"
-NoTasks(hs) == \A n \in hs : ~Replicates(Decide27(n, hs, {}, {}))
-
-\* a check "replicates" when it hands the replicator a task with at least one candidate node. (With overlapping
-\* rules the code as found keeps calling the replicator with an EMPTY candidate list: a holder remembered from
-\* an earlier rule does not lower the shortage of a later rule - a phantom shortage that copies nothing.)
-Replicates(d) == \E k \in 1..Len(d.tasks) : Len(d.tasks[k].nodes) > 0
-Quiet(hs) == \A n \in hs : LET d == Decide27(n, hs, {}, {}) IN ~Replicates(d) /\ d.del = "none"
-NoTasks(hs) == \A n \in hs : ~Replicates(Decide27(n, hs, {}, {}))
-P\* a check "replicates" when it hands the replicator a task with at least one candidate node. (With overlapping
-\* rules the code as found keeps calling the replicator with an EMPTY candidate list: a holder remembered from
-\* an earlier rule does not lower the shortage of a later rule - a phantom shortage that copies nothing.)
-Replicates(d) == \E k \in 1..Len(d.tasks) : Len(d.tasks[k].nodes) > 0
-Quiet(hs) == \A n \in hs : LET d == Decide27(n, hs, {}, {}) IN ~Replicates(d) /\ d.del = "none"
-NoTasks(hs) == \A n \in hs : ~Replicates(Decide27(n, hs, {}, {}))
-r\* a check "replicates" when it hands the replicator a task with at least one candidate node. (With overlapping
-\* rules the code as found keeps calling the replicator with an EMPTY candidate list: a holder remembered from
-\* an earlier rule does not lower the shortage of a later rule - a phantom shortage that copies nothing.)
-Replicates(d) == \E k \in 1..Len(d.tasks) : Len(d.tasks[k].nodes) > 0
-Quiet(hs) == \A n \in hs : LET d == Decide27(n, hs, {}, {}) IN ~Replicates(d) /\ d.del = "none"
-NoTasks(hs) == \A n \in hs : ~Replicates(Decide27(n, hs, {}, {}))
-i\* a check "replicates" when it hands the replicator a task with at least one candidate node. (With overlapping
-\* rules the code as found keeps calling the replicator with an EMPTY candidate list: a holder remembered from
-\* an earlier rule does not lower the shortage of a later rule - a phantom shortage that copies nothing.)
-Replicates(d) == \E k \in 1..Len(d.tasks) : Len(d.tasks[k].nodes) > 0
-Quiet(hs) == \A n \in hs : LET d == Decide27(n, hs, {}, {}) IN ~Replicates(d) /\ d.del = "none"
-NoTasks(hs) == \A n \in hs : ~Replicates(Decide27(n, hs, {}, {}))
-m\* a check "replicates" when it hands the replicator a task with at least one candidate node. (With overlapping
-\* rules the code as found keeps calling the replicator with an EMPTY candidate list: a holder remembered from
-\* an earlier rule does not lower the shortage of a later rule - a phantom shortage that copies nothing.)
-Replicates(d) == \E k \in 1..Len(d.tasks) : Len(d.tasks[k].nodes) > 0
-Quiet(hs) == \A n \in hs : LET d == Decide27(n, hs, {}, {}) IN ~Replicates(d) /\ d.del = "none"
-NoTasks(hs) == \A n \in hs : ~Replicates(Decide27(n, hs, {}, {}))
-a\* a check "replicates" when it hands the replicator a task with at least one candidate node. (With overlapping
-\* rules the code as found keeps calling the replicator with an EMPTY candidate list: a holder remembered from
-\* an earlier rule does not lower the shortage of a later rule - a phantom shortage that copies nothing.)
-Replicates(d) == \E k \in 1..Len(d.tasks) : Len(d.tasks[k].nodes) > 0
-Quiet(hs) == \A n \in hs : LET d == Decide27(n, hs, {}, {}) IN ~Replicates(d) /\ d.del = "none"
-NoTasks(hs) == \A n \in hs : ~Replicates(Decide27(n, hs, {}, {}))
-r\* a check "replicates" when it hands the replicator a task with at least one candidate node. (With overlapping
-\* rules the code as found keeps calling the replicator with an EMPTY candidate list: a holder remembered from
-\* an earlier rule does not lower the shortage of a later rule - a phantom shortage that copies nothing.)
-Replicates(d) == \E k \in 1..Len(d.tasks) : Len(d.tasks[k].nodes) > 0
-Quiet(hs) == \A n \in hs : LET d == Decide27(n, hs, {}, {}) IN ~Replicates(d) /\ d.del = "none"
-NoTasks(hs) == \A n \in hs : ~Replicates(Decide27(n, hs, {}, {}))
-i\* a check "replicates" when it hands the replicator a task with at least one candidate node. (With overlapping
-\* rules the code as found keeps calling the replicator with an EMPTY candidate list: a holder remembered from
-\* an earlier rule does not lower the shortage of a later rule - a phantom shortage that copies nothing.)
-Replicates(d) == \E k \in 1..Len(d.tasks) : Len(d.tasks[k].nodes) > 0
-Quiet(hs) == \A n \in hs : LET d == Decide27(n, hs, {}, {}) IN ~Replicates(d) /\ d.del = "none"
-NoTasks(hs) == \A n \in hs : ~Replicates(Decide27(n, hs, {}, {}))
-e\* a check "replicates" when it hands the replicator a task with at least one candidate node. (With overlapping
-\* rules the code as found keeps calling the replicator with an EMPTY candidate list: a holder remembered from
-\* an earlier rule does not lower the shortage of a later rule - a phantom shortage that copies nothing.)
-Replicates(d) == \E k \in 1..Len(d.tasks) : Len(d.tasks[k].nodes) > 0
-Quiet(hs) == \A n \in hs : LET d == Decide27(n, hs, {}, {}) IN ~Replicates(d) /\ d.del = "none"
-NoTasks(hs) == \A n \in hs : ~Replicates(Decide27(n, hs, {}, {}))
-s\* a check "replicates" when it hands the replicator a task with at least one candidate node. (With overlapping
-\* rules the code as found keeps calling the replicator with an EMPTY candidate list: a holder remembered from
-\* an earlier rule does not lower the shortage of a later rule - a phantom shortage that copies nothing.)
-Replicates(d) == \E k \in 1..Len(d.tasks) : Len(d.tasks[k].nodes) > 0
-Quiet(hs) == \A n \in hs : LET d == Decide27(n, hs, {}, {}) IN ~Replicates(d) /\ d.del = "none"
-NoTasks(hs) == \A n \in hs : ~Replicates(Decide27(n, hs, {}, {}))
- \* a check "replicates" when it hands the replicator a task with at least one candidate node. (With overlapping
-\* rules the code as found keeps calling the replicator with an EMPTY candidate list: a holder remembered from
-\* an earlier rule does not lower the shortage of a later rule - a phantom shortage that copies nothing.)
-Replicates(d) == \E k \in 1..Len(d.tasks) : Len(d.tasks[k].nodes) > 0
-Quiet(hs) == \A n \in hs : LET d == Decide27(n, hs, {}, {}) IN ~Replicates(d) /\ d.del = "none"
-NoTasks(hs) == \A n \in hs : ~Replicates(Decide27(n, hs, {}, {}))
-=\* a check "replicates" when it hands the replicator a task with at least one candidate node. (With overlapping
-\* rules the code as found keeps calling the replicator with an EMPTY candidate list: a holder remembered from
-\* an earlier rule does not lower the shortage of a later rule - a phantom shortage that copies nothing.)
-Replicates(d) == \E k \in 1..Len(d.tasks) : Len(d.tasks[k].nodes) > 0
-Quiet(hs) == \A n \in hs : LET d == Decide27(n, hs, {}, {}) IN ~Replicates(d) /\ d.del = "none"
-NoTasks(hs) == \A n \in hs : ~Replicates(Decide27(n, hs, {}, {}))
-=\* a check "replicates" when it hands the replicator a task with at least one candidate node. (With overlapping
-\* rules the code as found keeps calling the replicator with an EMPTY candidate list: a holder remembered from
-\* an earlier rule does not lower the shortage of a later rule - a phantom shortage that copies nothing.)
-Replicates(d) == \E k \in 1..Len(d.tasks) : Len(d.tasks[k].nodes) > 0
-Quiet(hs) == \A n \in hs : LET d == Decide27(n, hs, {}, {}) IN ~Replicates(d) /\ d.del = "none"
-NoTasks(hs) == \A n \in hs : ~Replicates(Decide27(n, hs, {}, {}))
- \* a check "replicates" when it hands the replicator a task with at least one candidate node. (With overlapping
-\* rules the code as found keeps calling the replicator with an EMPTY candidate list: a holder remembered from
-\* an earlier rule does not lower the shortage of a later rule - a phantom shortage that copies nothing.)
-Replicates(d) == \E k \in 1..Len(d.tasks) : Len(d.tasks[k].nodes) > 0
-Quiet(hs) == \A n \in hs : LET d == Decide27(n, hs, {}, {}) IN ~Replicates(d) /\ d.del = "none"
-NoTasks(hs) == \A n \in hs : ~Replicates(Decide27(n, hs, {}, {}))
-U\* a check "replicates" when it hands the replicator a task with at least one candidate node. (With overlapping
-\* rules the code as found keeps calling the replicator with an EMPTY candidate list: a holder remembered from
-\* an earlier rule does not lower the shortage of a later rule - a phantom shortage that copies nothing.)
-Replicates(d) == \E k \in 1..Len(d.tasks) : Len(d.tasks[k].nodes) > 0
-Quiet(hs) == \A n \in hs : LET d == Decide27(n, hs, {}, {}) IN ~Replicates(d) /\ d.del = "none"
-NoTasks(hs) == \A n \in hs : ~Replicates(Decide27(n, hs, {}, {}))
-N\* a check "replicates" when it hands the replicator a task with at least one candidate node. (With overlapping
-\* rules the code as found keeps calling the replicator with an EMPTY candidate list: a holder remembered from
-\* an earlier rule does not lower the shortage of a later rule - a phantom shortage that copies nothing.)
-Replicates(d) == \E k \in 1..Len(d.tasks) : Len(d.tasks[k].nodes) > 0
-Quiet(hs) == \A n \in hs : LET d == Decide27(n, hs, {}, {}) IN ~Replicates(d) /\ d.del = "none"
-NoTasks(hs) == \A n \in hs : ~Replicates(Decide27(n, hs, {}, {}))
-I\* a check "replicates" when it hands the replicator a task with at least one candidate node. (With overlapping
-\* rules the code as found keeps calling the replicator with an EMPTY candidate list: a holder remembered from
-\* an earlier rule does not lower the shortage of a later rule - a phantom shortage that copies nothing.)
-Replicates(d) == \E k \in 1..Len(d.tasks) : Len(d.tasks[k].nodes) > 0
-Quiet(hs) == \A n \in hs : LET d == Decide27(n, hs, {}, {}) IN ~Replicates(d) /\ d.del = "none"
-NoTasks(hs) == \A n \in hs : ~Replicates(Decide27(n, hs, {}, {}))
-O\* a check "replicates" when it hands the replicator a task with at least one candidate node. (With overlapping
-\* rules the code as found keeps calling the replicator with an EMPTY candidate list: a holder remembered from
-\* an earlier rule does not lower the shortage of a later rule - a phantom shortage that copies nothing.)
-Replicates(d) == \E k \in 1..Len(d.tasks) : Len(d.tasks[k].nodes) > 0
-Quiet(hs) == \A n \in hs : LET d == Decide27(n, hs, {}, {}) IN ~Replicates(d) /\ d.del = "none"
-NoTasks(hs) == \A n \in hs : ~Replicates(Decide27(n, hs, {}, {}))
-N\* a check "replicates" when it hands the replicator a task with at least one candidate node. (With overlapping
-\* rules the code as found keeps calling the replicator with an EMPTY candidate list: a holder remembered from
-\* an earlier rule does not lower the shortage of a later rule - a phantom shortage that copies nothing.)
-Replicates(d) == \E k \in 1..Len(d.tasks) : Len(d.tasks[k].nodes) > 0
-Quiet(hs) == \A n \in hs : LET d == Decide27(n, hs, {}, {}) IN ~Replicates(d) /\ d.del = "none"
-NoTasks(hs) == \A n \in hs : ~Replicates(Decide27(n, hs, {}, {}))
- \* a check "replicates" when it hands the replicator a task with at least one candidate node. (With overlapping
-\* rules the code as found keeps calling the replicator with an EMPTY candidate list: a holder remembered from
-\* an earlier rule does not lower the shortage of a later rule - a phantom shortage that copies nothing.)
-Replicates(d) == \E k \in 1..Len(d.tasks) : Len(d.tasks[k].nodes) > 0
-Quiet(hs) == \A n \in hs : LET d == Decide27(n, hs, {}, {}) IN ~Replicates(d) /\ d.del = "none"
-NoTasks(hs) == \A n \in hs : ~Replicates(Decide27(n, hs, {}, {}))
-{\* a check "replicates" when it hands the replicator a task with at least one candidate node. (With overlapping
-\* rules the code as found keeps calling the replicator with an EMPTY candidate list: a holder remembered from
-\* an earlier rule does not lower the shortage of a later rule - a phantom shortage that copies nothing.)
-Replicates(d) == \E k \in 1..Len(d.tasks) : Len(d.tasks[k].nodes) > 0
-Quiet(hs) == \A n \in hs : LET d == Decide27(n, hs, {}, {}) IN ~Replicates(d) /\ d.del = "none"
-NoTasks(hs) == \A n \in hs : ~Replicates(Decide27(n, hs, {}, {}))
-{\* a check "replicates" when it hands the replicator a task with at least one candidate node. (With overlapping
-\* rules the code as found keeps calling the replicator with an EMPTY candidate list: a holder remembered from
-\* an earlier rule does not lower the shortage of a later rule - a phantom shortage that copies nothing.)
-Replicates(d) == \E k \in 1..Len(d.tasks) : Len(d.tasks[k].nodes) > 0
-Quiet(hs) == \A n \in hs : LET d == Decide27(n, hs, {}, {}) IN ~Replicates(d) /\ d.del = "none"
-NoTasks(hs) == \A n \in hs : ~Replicates(Decide27(n, hs, {}, {}))
-r\* a check "replicates" when it hands the replicator a task with at least one candidate node. (With overlapping
-\* rules the code as found keeps calling the replicator with an EMPTY candidate list: a holder remembered from
-\* an earlier rule does not lower the shortage of a later rule - a phantom shortage that copies nothing.)
-Replicates(d) == \E k \in 1..Len(d.tasks) : Len(d.tasks[k].nodes) > 0
-Quiet(hs) == \A n \in hs : LET d == Decide27(n, hs, {}, {}) IN ~Replicates(d) /\ d.del = "none"
-NoTasks(hs) == \A n \in hs : ~Replicates(Decide27(n, hs, {}, {}))
-u\* a check "replicates" when it hands the replicator a task with at least one candidate node. (With overlapping
-\* rules the code as found keeps calling the replicator with an EMPTY candidate list: a holder remembered from
-\* an earlier rule does not lower the shortage of a later rule - a phantom shortage that copies nothing.)
-Replicates(d) == \E k \in 1..Len(d.tasks) : Len(d.tasks[k].nodes) > 0
-Quiet(hs) == \A n \in hs : LET d == Decide27(n, hs, {}, {}) IN ~Replicates(d) /\ d.del = "none"
-NoTasks(hs) == \A n \in hs : ~Replicates(Decide27(n, hs, {}, {}))
-l\* a check "replicates" when it hands the replicator a task with at least one candidate node. (With overlapping
-\* rules the code as found keeps calling the replicator with an EMPTY candidate list: a holder remembered from
-\* an earlier rule does not lower the shortage of a later rule - a phantom shortage that copies nothing.)
-Replicates(d) == \E k \in 1..Len(d.tasks) : Len(d.tasks[k].nodes) > 0
-Quiet(hs) == \A n \in hs : LET d == Decide27(n, hs, {}, {}) IN ~Replicates(d) /\ d.del = "none"
-NoTasks(hs) == \A n \in hs : ~Replicates(Decide27(n, hs, {}, {}))
-e\* a check "replicates" when it hands the replicator a task with at least one candidate node. (With overlapping
-\* rules the code as found keeps calling the replicator with an EMPTY candidate list: a holder remembered from
-\* an earlier rule does not lower the shortage of a later rule - a phantom shortage that copies nothing.)
-Replicates(d) == \E k \in 1..Len(d.tasks) : Len(d.tasks[k].nodes) > 0
-Quiet(hs) == \A n \in hs : LET d == Decide27(n, hs, {}, {}) IN ~Replicates(d) /\ d.del = "none"
-NoTasks(hs) == \A n \in hs : ~Replicates(Decide27(n, hs, {}, {}))
-s\* a check "replicates" when it hands the replicator a task with at least one candidate node. (With overlapping
-\* rules the code as found keeps calling the replicator with an EMPTY candidate list: a holder remembered from
-\* an earlier rule does not lower the shortage of a later rule - a phantom shortage that copies nothing.)
-Replicates(d) == \E k \in 1..Len(d.tasks) : Len(d.tasks[k].nodes) > 0
-Quiet(hs) == \A n \in hs : LET d == Decide27(n, hs, {}, {}) IN ~Replicates(d) /\ d.del = "none"
-NoTasks(hs) == \A n \in hs : ~Replicates(Decide27(n, hs, {}, {}))
-[\* a check "replicates" when it hands the replicator a task with at least one candidate node. (With overlapping
-\* rules the code as found keeps calling the replicator with an EMPTY candidate list: a holder remembered from
-\* an earlier rule does not lower the shortage of a later rule - a phantom shortage that copies nothing.)
-Replicates(d) == \E k \in 1..Len(d.tasks) : Len(d.tasks[k].nodes) > 0
-Quiet(hs) == \A n \in hs : LET d == Decide27(n, hs, {}, {}) IN ~Replicates(d) /\ d.del = "none"
-NoTasks(hs) == \A n \in hs : ~Replicates(Decide27(n, hs, {}, {}))
-k\* a check "replicates" when it hands the replicator a task with at least one candidate node. (With overlapping
-\* rules the code as found keeps calling the replicator with an EMPTY candidate list: a holder remembered from
-\* an earlier rule does not lower the shortage of a later rule - a phantom shortage that copies nothing.)
-Replicates(d) == \E k \in 1..Len(d.tasks) : Len(d.tasks[k].nodes) > 0
-Quiet(hs) == \A n \in hs : LET d == Decide27(n, hs, {}, {}) IN ~Replicates(d) /\ d.del = "none"
-NoTasks(hs) == \A n \in hs : ~Replicates(Decide27(n, hs, {}, {}))
-x\* a check "replicates" when it hands the replicator a task with at least one candidate node. (With overlapping
-\* rules the code as found keeps calling the replicator with an EMPTY candidate list: a holder remembered from
-\* an earlier rule does not lower the shortage of a later rule - a phantom shortage that copies nothing.)
-Replicates(d) == \E k \in 1..Len(d.tasks) : Len(d.tasks[k].nodes) > 0
-Quiet(hs) == \A n \in hs : LET d == Decide27(n, hs, {}, {}) IN ~Replicates(d) /\ d.del = "none"
-NoTasks(hs) == \A n \in hs : ~Replicates(Decide27(n, hs, {}, {}))
-]\* a check "replicates" when it hands the replicator a task with at least one candidate node. (With overlapping
-\* rules the code as found keeps calling the replicator with an EMPTY candidate list: a holder remembered from
-\* an earlier rule does not lower the shortage of a later rule - a phantom shortage that copies nothing.)
-Replicates(d) == \E k \in 1..Len(d.tasks) : Len(d.tasks[k].nodes) > 0
-Quiet(hs) == \A n \in hs : LET d == Decide27(n, hs, {}, {}) IN ~Replicates(d) /\ d.del = "none"
-NoTasks(hs) == \A n \in hs : ~Replicates(Decide27(n, hs, {}, {}))
-.\* a check "replicates" when it hands the replicator a task with at least one candidate node. (With overlapping
-\* rules the code as found keeps calling the replicator with an EMPTY candidate list: a holder remembered from
-\* an earlier rule does not lower the shortage of a later rule - a phantom shortage that copies nothing.)
-Replicates(d) == \E k \in 1..Len(d.tasks) : Len(d.tasks[k].nodes) > 0
-Quiet(hs) == \A n \in hs : LET d == Decide27(n, hs, {}, {}) IN ~Replicates(d) /\ d.del = "none"
-NoTasks(hs) == \A n \in hs : ~Replicates(Decide27(n, hs, {}, {}))
-n\* a check "replicates" when it hands the replicator a task with at least one candidate node. (With overlapping
-\* rules the code as found keeps calling the replicator with an EMPTY candidate list: a holder remembered from
-\* an earlier rule does not lower the shortage of a later rule - a phantom shortage that copies nothing.)
-Replicates(d) == \E k \in 1..Len(d.tasks) : Len(d.tasks[k].nodes) > 0
-Quiet(hs) == \A n \in hs : LET d == Decide27(n, hs, {}, {}) IN ~Replicates(d) /\ d.del = "none"
-NoTasks(hs) == \A n \in hs : ~Replicates(Decide27(n, hs, {}, {}))
-o\* a check "replicates" when it hands the replicator a task with at least one candidate node. (With overlapping
-\* rules the code as found keeps calling the replicator with an EMPTY candidate list: a holder remembered from
-\* an earlier rule does not lower the shortage of a later rule - a phantom shortage that copies nothing.)
-Replicates(d) == \E k \in 1..Len(d.tasks) : Len(d.tasks[k].nodes) > 0
-Quiet(hs) == \A n \in hs : LET d == Decide27(n, hs, {}, {}) IN ~Replicates(d) /\ d.del = "none"
-NoTasks(hs) == \A n \in hs : ~Replicates(Decide27(n, hs, {}, {}))
-d\* a check "replicates" when it hands the replicator a task with at least one candidate node. (With overlapping
-\* rules the code as found keeps calling the replicator with an EMPTY candidate list: a holder remembered from
-\* an earlier rule does not lower the shortage of a later rule - a phantom shortage that copies nothing.)
-Replicates(d) == \E k \in 1..Len(d.tasks) : Len(d.tasks[k].nodes) > 0
-Quiet(hs) == \A n \in hs : LET d == Decide27(n, hs, {}, {}) IN ~Replicates(d) /\ d.del = "none"
-NoTasks(hs) == \A n \in hs : ~Replicates(Decide27(n, hs, {}, {}))
-e\* a check "replicates" when it hands the replicator a task with at least one candidate node. (With overlapping
-\* rules the code as found keeps calling the replicator with an EMPTY candidate list: a holder remembered from
-\* an earlier rule does not lower the shortage of a later rule - a phantom shortage that copies nothing.)
-Replicates(d) == \E k \in 1..Len(d.tasks) : Len(d.tasks[k].nodes) > 0
-Quiet(hs) == \A n \in hs : LET d == Decide27(n, hs, {}, {}) IN ~Replicates(d) /\ d.del = "none"
-NoTasks(hs) == \A n \in hs : ~Replicates(Decide27(n, hs, {}, {}))
-s\* a check "replicates" when it hands the replicator a task with at least one candidate node. (With overlapping
-\* rules the code as found keeps calling the replicator with an EMPTY candidate list: a holder remembered from
-\* an earlier rule does not lower the shortage of a later rule - a phantom shortage that copies nothing.)
-Replicates(d) == \E k \in 1..Len(d.tasks) : Len(d.tasks[k].nodes) > 0
-Quiet(hs) == \A n \in hs : LET d == Decide27(n, hs, {}, {}) IN ~Replicates(d) /\ d.del = "none"
-NoTasks(hs) == \A n \in hs : ~Replicates(Decide27(n, hs, {}, {}))
-[\* a check "replicates" when it hands the replicator a task with at least one candidate node. (With overlapping
-\* rules the code as found keeps calling the replicator with an EMPTY candidate list: a holder remembered from
-\* an earlier rule does not lower the shortage of a later rule - a phantom shortage that copies nothing.)
-Replicates(d) == \E k \in 1..Len(d.tasks) : Len(d.tasks[k].nodes) > 0
-Quiet(hs) == \A n \in hs : LET d == Decide27(n, hs, {}, {}) IN ~Replicates(d) /\ d.del = "none"
-NoTasks(hs) == \A n \in hs : ~Replicates(Decide27(n, hs, {}, {}))
-j\* a check "replicates" when it hands the replicator a task with at least one candidate node. (With overlapping
-\* rules the code as found keeps calling the replicator with an EMPTY candidate list: a holder remembered from
-\* an earlier rule does not lower the shortage of a later rule - a phantom shortage that copies nothing.)
-Replicates(d) == \E k \in 1..Len(d.tasks) : Len(d.tasks[k].nodes) > 0
-Quiet(hs) == \A n \in hs : LET d == Decide27(n, hs, {}, {}) IN ~Replicates(d) /\ d.del = "none"
-NoTasks(hs) == \A n \in hs : ~Replicates(Decide27(n, hs, {}, {}))
-]\* a check "replicates" when it hands the replicator a task with at least one candidate node. (With overlapping
-\* rules the code as found keeps calling the replicator with an EMPTY candidate list: a holder remembered from
-\* an earlier rule does not lower the shortage of a later rule - a phantom shortage that copies nothing.)
-Replicates(d) == \E k \in 1..Len(d.tasks) : Len(d.tasks[k].nodes) > 0
-Quiet(hs) == \A n \in hs : LET d == Decide27(n, hs, {}, {}) IN ~Replicates(d) /\ d.del = "none"
-NoTasks(hs) == \A n \in hs : ~Replicates(Decide27(n, hs, {}, {}))
- \* a check "replicates" when it hands the replicator a task with at least one candidate node. (With overlapping
-\* rules the code as found keeps calling the replicator with an EMPTY candidate list: a holder remembered from
-\* an earlier rule does not lower the shortage of a later rule - a phantom shortage that copies nothing.)
-Replicates(d) == \E k \in 1..Len(d.tasks) : Len(d.tasks[k].nodes) > 0
-Quiet(hs) == \A n \in hs : LET d == Decide27(n, hs, {}, {}) IN ~Replicates(d) /\ d.del = "none"
-NoTasks(hs) == \A n \in hs : ~Replicates(Decide27(n, hs, {}, {}))
-:\* a check "replicates" when it hands the replicator a task with at least one candidate node. (With overlapping
-\* rules the code as found keeps calling the replicator with an EMPTY candidate list: a holder remembered from
-\* an earlier rule does not lower the shortage of a later rule - a phantom shortage that copies nothing.)
-Replicates(d) == \E k \in 1..Len(d.tasks) : Len(d.tasks[k].nodes) > 0
-Quiet(hs) == \A n \in hs : LET d == Decide27(n, hs, {}, {}) IN ~Replicates(d) /\ d.del = "none"
-NoTasks(hs) == \A n \in hs : ~Replicates(Decide27(n, hs, {}, {}))
- \* a check "replicates" when it hands the replicator a task with at least one candidate node. (With overlapping
-\* rules the code as found keeps calling the replicator with an EMPTY candidate list: a holder remembered from
-\* an earlier rule does not lower the shortage of a later rule - a phantom shortage that copies nothing.)
-Replicates(d) == \E k \in 1..Len(d.tasks) : Len(d.tasks[k].nodes) > 0
-Quiet(hs) == \A n \in hs : LET d == Decide27(n, hs, {}, {}) IN ~Replicates(d) /\ d.del = "none"
-NoTasks(hs) == \A n \in hs : ~Replicates(Decide27(n, hs, {}, {}))
-j\* a check "replicates" when it hands the replicator a task with at least one candidate node. (With overlapping
-\* rules the code as found keeps calling the replicator with an EMPTY candidate list: a holder remembered from
-\* an earlier rule does not lower the shortage of a later rule - a phantom shortage that copies nothing.)
-Replicates(d) == \E k \in 1..Len(d.tasks) : Len(d.tasks[k].nodes) > 0
-Quiet(hs) == \A n \in hs : LET d == Decide27(n, hs, {}, {}) IN ~Replicates(d) /\ d.del = "none"
-NoTasks(hs) == \A n \in hs : ~Replicates(Decide27(n, hs, {}, {}))
- \* a check "replicates" when it hands the replicator a task with at least one candidate node. (With overlapping
-\* rules the code as found keeps calling the replicator with an EMPTY candidate list: a holder remembered from
-\* an earlier rule does not lower the shortage of a later rule - a phantom shortage that copies nothing.)
-Replicates(d) == \E k \in 1..Len(d.tasks) : Len(d.tasks[k].nodes) > 0
-Quiet(hs) == \A n \in hs : LET d == Decide27(n, hs, {}, {}) IN ~Replicates(d) /\ d.del = "none"
-NoTasks(hs) == \A n \in hs : ~Replicates(Decide27(n, hs, {}, {}))
-\\* a check "replicates" when it hands the replicator a task with at least one candidate node. (With overlapping
-\* rules the code as found keeps calling the replicator with an EMPTY candidate list: a holder remembered from
-\* an earlier rule does not lower the shortage of a later rule - a phantom shortage that copies nothing.)
-Replicates(d) == \E k \in 1..Len(d.tasks) : Len(d.tasks[k].nodes) > 0
-Quiet(hs) == \A n \in hs : LET d == Decide27(n, hs, {}, {}) IN ~Replicates(d) /\ d.del = "none"
-NoTasks(hs) == \A n \in hs : ~Replicates(Decide27(n, hs, {}, {}))
-i\* a check "replicates" when it hands the replicator a task with at least one candidate node. (With overlapping
-\* rules the code as found keeps calling the replicator with an EMPTY candidate list: a holder remembered from
-\* an earlier rule does not lower the shortage of a later rule - a phantom shortage that copies nothing.)
-Replicates(d) == \E k \in 1..Len(d.tasks) : Len(d.tasks[k].nodes) > 0
-Quiet(hs) == \A n \in hs : LET d == Decide27(n, hs, {}, {}) IN ~Replicates(d) /\ d.del = "none"
-NoTasks(hs) == \A n \in hs : ~Replicates(Decide27(n, hs, {}, {}))
-n\* a check "replicates" when it hands the replicator a task with at least one candidate node. (With overlapping
-\* rules the code as found keeps calling the replicator with an EMPTY candidate list: a holder remembered from
-\* an earlier rule does not lower the shortage of a later rule - a phantom shortage that copies nothing.)
-Replicates(d) == \E k \in 1..Len(d.tasks) : Len(d.tasks[k].nodes) > 0
-Quiet(hs) == \A n \in hs : LET d == Decide27(n, hs, {}, {}) IN ~Replicates(d) /\ d.del = "none"
-NoTasks(hs) == \A n \in hs : ~Replicates(Decide27(n, hs, {}, {}))
- \* a check "replicates" when it hands the replicator a task with at least one candidate node. (With overlapping
-\* rules the code as found keeps calling the replicator with an EMPTY candidate list: a holder remembered from
-\* an earlier rule does not lower the shortage of a later rule - a phantom shortage that copies nothing.)
-Replicates(d) == \E k \in 1..Len(d.tasks) : Len(d.tasks[k].nodes) > 0
-Quiet(hs) == \A n \in hs : LET d == Decide27(n, hs, {}, {}) IN ~Replicates(d) /\ d.del = "none"
-NoTasks(hs) == \A n \in hs : ~Replicates(Decide27(n, hs, {}, {}))
-1\* a check "replicates" when it hands the replicator a task with at least one candidate node. (With overlapping
-\* rules the code as found keeps calling the replicator with an EMPTY candidate list: a holder remembered from
-\* an earlier rule does not lower the shortage of a later rule - a phantom shortage that copies nothing.)
-Replicates(d) == \E k \in 1..Len(d.tasks) : Len(d.tasks[k].nodes) > 0
-Quiet(hs) == \A n \in hs : LET d == Decide27(n, hs, {}, {}) IN ~Replicates(d) /\ d.del = "none"
-NoTasks(hs) == \A n \in hs : ~Replicates(Decide27(n, hs, {}, {}))
-.\* a check "replicates" when it hands the replicator a task with at least one candidate node. (With overlapping
-\* rules the code as found keeps calling the replicator with an EMPTY candidate list: a holder remembered from
-\* an earlier rule does not lower the shortage of a later rule - a phantom shortage that copies nothing.)
-Replicates(d) == \E k \in 1..Len(d.tasks) : Len(d.tasks[k].nodes) > 0
-Quiet(hs) == \A n \in hs : LET d == Decide27(n, hs, {}, {}) IN ~Replicates(d) /\ d.del = "none"
-NoTasks(hs) == \A n \in hs : ~Replicates(Decide27(n, hs, {}, {}))
-.\* a check "replicates" when it hands the replicator a task with at least one candidate node. (With overlapping
-\* rules the code as found keeps calling the replicator with an EMPTY candidate list: a holder remembered from
-\* an earlier rule does not lower the shortage of a later rule - a phantom shortage that copies nothing.)
-Replicates(d) == \E k \in 1..Len(d.tasks) : Len(d.tasks[k].nodes) > 0
-Quiet(hs) == \A n \in hs : LET d == Decide27(n, hs, {}, {}) IN ~Replicates(d) /\ d.del = "none"
-NoTasks(hs) == \A n \in hs : ~Replicates(Decide27(n, hs, {}, {}))
-r\* a check "replicates" when it hands the replicator a task with at least one candidate node. (With overlapping
-\* rules the code as found keeps calling the replicator with an EMPTY candidate list: a holder remembered from
-\* an earlier rule does not lower the shortage of a later rule - a phantom shortage that copies nothing.)
-Replicates(d) == \E k \in 1..Len(d.tasks) : Len(d.tasks[k].nodes) > 0
-Quiet(hs) == \A n \in hs : LET d == Decide27(n, hs, {}, {}) IN ~Replicates(d) /\ d.del = "none"
-NoTasks(hs) == \A n \in hs : ~Replicates(Decide27(n, hs, {}, {}))
-u\* a check "replicates" when it hands the replicator a task with at least one candidate node. (With overlapping
-\* rules the code as found keeps calling the replicator with an EMPTY candidate list: a holder remembered from
-\* an earlier rule does not lower the shortage of a later rule - a phantom shortage that copies nothing.)
-Replicates(d) == \E k \in 1..Len(d.tasks) : Len(d.tasks[k].nodes) > 0
-Quiet(hs) == \A n \in hs : LET d == Decide27(n, hs, {}, {}) IN ~Replicates(d) /\ d.del = "none"
-NoTasks(hs) == \A n \in hs : ~Replicates(Decide27(n, hs, {}, {}))
-l\* a check "replicates" when it hands the replicator a task with at least one candidate node. (With overlapping
-\* rules the code as found keeps calling the replicator with an EMPTY candidate list: a holder remembered from
-\* an earlier rule does not lower the shortage of a later rule - a phantom shortage that copies nothing.)
-Replicates(d) == \E k \in 1..Len(d.tasks) : Len(d.tasks[k].nodes) > 0
-Quiet(hs) == \A n \in hs : LET d == Decide27(n, hs, {}, {}) IN ~Replicates(d) /\ d.del = "none"
-NoTasks(hs) == \A n \in hs : ~Replicates(Decide27(n, hs, {}, {}))
-e\* a check "replicates" when it hands the replicator a task with at least one candidate node. (With overlapping
-\* rules the code as found keeps calling the replicator with an EMPTY candidate list: a holder remembered from
-\* an earlier rule does not lower the shortage of a later rule - a phantom shortage that copies nothing.)
-Replicates(d) == \E k \in 1..Len(d.tasks) : Len(d.tasks[k].nodes) > 0
-Quiet(hs) == \A n \in hs : LET d == Decide27(n, hs, {}, {}) IN ~Replicates(d) /\ d.del = "none"
-NoTasks(hs) == \A n \in hs : ~Replicates(Decide27(n, hs, {}, {}))
-s\* a check "replicates" when it hands the replicator a task with at least one candidate node. (With overlapping
-\* rules the code as found keeps calling the replicator with an EMPTY candidate list: a holder remembered from
-\* an earlier rule does not lower the shortage of a later rule - a phantom shortage that copies nothing.)
-Replicates(d) == \E k \in 1..Len(d.tasks) : Len(d.tasks[k].nodes) > 0
-Quiet(hs) == \A n \in hs : LET d == Decide27(n, hs, {}, {}) IN ~Replicates(d) /\ d.del = "none"
-NoTasks(hs) == \A n \in hs : ~Replicates(Decide27(n, hs, {}, {}))
-[\* a check "replicates" when it hands the replicator a task with at least one candidate node. (With overlapping
-\* rules the code as found keeps calling the replicator with an EMPTY candidate list: a holder remembered from
-\* an earlier rule does not lower the shortage of a later rule - a phantom shortage that copies nothing.)
-Replicates(d) == \E k \in 1..Len(d.tasks) : Len(d.tasks[k].nodes) > 0
-Quiet(hs) == \A n \in hs : LET d == Decide27(n, hs, {}, {}) IN ~Replicates(d) /\ d.del = "none"
-NoTasks(hs) == \A n \in hs : ~Replicates(Decide27(n, hs, {}, {}))
-k\* a check "replicates" when it hands the replicator a task with at least one candidate node. (With overlapping
-\* rules the code as found keeps calling the replicator with an EMPTY candidate list: a holder remembered from
-\* an earlier rule does not lower the shortage of a later rule - a phantom shortage that copies nothing.)
-Replicates(d) == \E k \in 1..Len(d.tasks) : Len(d.tasks[k].nodes) > 0
-Quiet(hs) == \A n \in hs : LET d == Decide27(n, hs, {}, {}) IN ~Replicates(d) /\ d.del = "none"
-NoTasks(hs) == \A n \in hs : ~Replicates(Decide27(n, hs, {}, {}))
-x\* a check "replicates" when it hands the replicator a task with at least one candidate node. (With overlapping
-\* rules the code as found keeps calling the replicator with an EMPTY candidate list: a holder remembered from
-\* an earlier rule does not lower the shortage of a later rule - a phantom shortage that copies nothing.)
-Replicates(d) == \E k \in 1..Len(d.tasks) : Len(d.tasks[k].nodes) > 0
-Quiet(hs) == \A n \in hs : LET d == Decide27(n, hs, {}, {}) IN ~Replicates(d) /\ d.del = "none"
-NoTasks(hs) == \A n \in hs : ~Replicates(Decide27(n, hs, {}, {}))
-]\* a check "replicates" when it hands the replicator a task with at least one candidate node. (With overlapping
-\* rules the code as found keeps calling the replicator with an EMPTY candidate list: a holder remembered from
-\* an earlier rule does not lower the shortage of a later rule - a phantom shortage that copies nothing.)
-Replicates(d) == \E k \in 1..Len(d.tasks) : Len(d.tasks[k].nodes) > 0
-Quiet(hs) == \A n \in hs : LET d == Decide27(n, hs, {}, {}) IN ~Replicates(d) /\ d.del = "none"
-NoTasks(hs) == \A n \in hs : ~Replicates(Decide27(n, hs, {}, {}))
-.\* a check "replicates" when it hands the replicator a task with at least one candidate node. (With overlapping
-\* rules the code as found keeps calling the replicator with an EMPTY candidate list: a holder remembered from
-\* an earlier rule does not lower the shortage of a later rule - a phantom shortage that copies nothing.)
-Replicates(d) == \E k \in 1..Len(d.tasks) : Len(d.tasks[k].nodes) > 0
-Quiet(hs) == \A n \in hs : LET d == Decide27(n, hs, {}, {}) IN ~Replicates(d) /\ d.del = "none"
-NoTasks(hs) == \A n \in hs : ~Replicates(Decide27(n, hs, {}, {}))
-n\* a check "replicates" when it hands the replicator a task with at least one candidate node. (With overlapping
-\* rules the code as found keeps calling the replicator with an EMPTY candidate list: a holder remembered from
-\* an earlier rule does not lower the shortage of a later rule - a phantom shortage that copies nothing.)
-Replicates(d) == \E k \in 1..Len(d.tasks) : Len(d.tasks[k].nodes) > 0
-Quiet(hs) == \A n \in hs : LET d == Decide27(n, hs, {}, {}) IN ~Replicates(d) /\ d.del = "none"
-NoTasks(hs) == \A n \in hs : ~Replicates(Decide27(n, hs, {}, {}))
-}\* a check "replicates" when it hands the replicator a task with at least one candidate node. (With overlapping
-\* rules the code as found keeps calling the replicator with an EMPTY candidate list: a holder remembered from
-\* an earlier rule does not lower the shortage of a later rule - a phantom shortage that copies nothing.)
-Replicates(d) == \E k \in 1..Len(d.tasks) : Len(d.tasks[k].nodes) > 0
-Quiet(hs) == \A n \in hs : LET d == Decide27(n, hs, {}, {}) IN ~Replicates(d) /\ d.del = "none"
-NoTasks(hs) == \A n \in hs : ~Replicates(Decide27(n, hs, {}, {}))
- \* a check "replicates" when it hands the replicator a task with at least one candidate node. (With overlapping
-\* rules the code as found keeps calling the replicator with an EMPTY candidate list: a holder remembered from
-\* an earlier rule does not lower the shortage of a later rule - a phantom shortage that copies nothing.)
-Replicates(d) == \E k \in 1..Len(d.tasks) : Len(d.tasks[k].nodes) > 0
-Quiet(hs) == \A n \in hs : LET d == Decide27(n, hs, {}, {}) IN ~Replicates(d) /\ d.del = "none"
-NoTasks(hs) == \A n \in hs : ~Replicates(Decide27(n, hs, {}, {}))
-:\* a check "replicates" when it hands the replicator a task with at least one candidate node. (With overlapping
-\* rules the code as found keeps calling the replicator with an EMPTY candidate list: a holder remembered from
-\* an earlier rule does not lower the shortage of a later rule - a phantom shortage that copies nothing.)
-Replicates(d) == \E k \in 1..Len(d.tasks) : Len(d.tasks[k].nodes) > 0
-Quiet(hs) == \A n \in hs : LET d == Decide27(n, hs, {}, {}) IN ~Replicates(d) /\ d.del = "none"
-NoTasks(hs) == \A n \in hs : ~Replicates(Decide27(n, hs, {}, {}))
- \* a check "replicates" when it hands the replicator a task with at least one candidate node. (With overlapping
-\* rules the code as found keeps calling the replicator with an EMPTY candidate list: a holder remembered from
-\* an earlier rule does not lower the shortage of a later rule - a phantom shortage that copies nothing.)
-Replicates(d) == \E k \in 1..Len(d.tasks) : Len(d.tasks[k].nodes) > 0
-Quiet(hs) == \A n \in hs : LET d == Decide27(n, hs, {}, {}) IN ~Replicates(d) /\ d.del = "none"
-NoTasks(hs) == \A n \in hs : ~Replicates(Decide27(n, hs, {}, {}))
-k\* a check "replicates" when it hands the replicator a task with at least one candidate node. (With overlapping
-\* rules the code as found keeps calling the replicator with an EMPTY candidate list: a holder remembered from
-\* an earlier rule does not lower the shortage of a later rule - a phantom shortage that copies nothing.)
-Replicates(d) == \E k \in 1..Len(d.tasks) : Len(d.tasks[k].nodes) > 0
-Quiet(hs) == \A n \in hs : LET d == Decide27(n, hs, {}, {}) IN ~Replicates(d) /\ d.del = "none"
-NoTasks(hs) == \A n \in hs : ~Replicates(Decide27(n, hs, {}, {}))
-x\* a check "replicates" when it hands the replicator a task with at least one candidate node. (With overlapping
-\* rules the code as found keeps calling the replicator with an EMPTY candidate list: a holder remembered from
-\* an earlier rule does not lower the shortage of a later rule - a phantom shortage that copies nothing.)
-Replicates(d) == \E k \in 1..Len(d.tasks) : Len(d.tasks[k].nodes) > 0
-Quiet(hs) == \A n \in hs : LET d == Decide27(n, hs, {}, {}) IN ~Replicates(d) /\ d.del = "none"
-NoTasks(hs) == \A n \in hs : ~Replicates(Decide27(n, hs, {}, {}))
- \* a check "replicates" when it hands the replicator a task with at least one candidate node. (With overlapping
-\* rules the code as found keeps calling the replicator with an EMPTY candidate list: a holder remembered from
-\* an earlier rule does not lower the shortage of a later rule - a phantom shortage that copies nothing.)
-Replicates(d) == \E k \in 1..Len(d.tasks) : Len(d.tasks[k].nodes) > 0
-Quiet(hs) == \A n \in hs : LET d == Decide27(n, hs, {}, {}) IN ~Replicates(d) /\ d.del = "none"
-NoTasks(hs) == \A n \in hs : ~Replicates(Decide27(n, hs, {}, {}))
-\\* a check "replicates" when it hands the replicator a task with at least one candidate node. (With overlapping
-\* rules the code as found keeps calling the replicator with an EMPTY candidate list: a holder remembered from
-\* an earlier rule does not lower the shortage of a later rule - a phantom shortage that copies nothing.)
-Replicates(d) == \E k \in 1..Len(d.tasks) : Len(d.tasks[k].nodes) > 0
-Quiet(hs) == \A n \in hs : LET d == Decide27(n, hs, {}, {}) IN ~Replicates(d) /\ d.del = "none"
-NoTasks(hs) == \A n \in hs : ~Replicates(Decide27(n, hs, {}, {}))
-i\* a check "replicates" when it hands the replicator a task with at least one candidate node. (With overlapping
-\* rules the code as found keeps calling the replicator with an EMPTY candidate list: a holder remembered from
-\* an earlier rule does not lower the shortage of a later rule - a phantom shortage that copies nothing.)
-Replicates(d) == \E k \in 1..Len(d.tasks) : Len(d.tasks[k].nodes) > 0
-Quiet(hs) == \A n \in hs : LET d == Decide27(n, hs, {}, {}) IN ~Replicates(d) /\ d.del = "none"
-NoTasks(hs) == \A n \in hs : ~Replicates(Decide27(n, hs, {}, {}))
-n\* a check "replicates" when it hands the replicator a task with at least one candidate node. (With overlapping
-\* rules the code as found keeps calling the replicator with an EMPTY candidate list: a holder remembered from
-\* an earlier rule does not lower the shortage of a later rule - a phantom shortage that copies nothing.)
-Replicates(d) == \E k \in 1..Len(d.tasks) : Len(d.tasks[k].nodes) > 0
-Quiet(hs) == \A n \in hs : LET d == Decide27(n, hs, {}, {}) IN ~Replicates(d) /\ d.del = "none"
-NoTasks(hs) == \A n \in hs : ~Replicates(Decide27(n, hs, {}, {}))
- \* a check "replicates" when it hands the replicator a task with at least one candidate node. (With overlapping
-\* rules the code as found keeps calling the replicator with an EMPTY candidate list: a holder remembered from
-\* an earlier rule does not lower the shortage of a later rule - a phantom shortage that copies nothing.)
-Replicates(d) == \E k \in 1..Len(d.tasks) : Len(d.tasks[k].nodes) > 0
-Quiet(hs) == \A n \in hs : LET d == Decide27(n, hs, {}, {}) IN ~Replicates(d) /\ d.del = "none"
-NoTasks(hs) == \A n \in hs : ~Replicates(Decide27(n, hs, {}, {}))
-1\* a check "replicates" when it hands the replicator a task with at least one candidate node. (With overlapping
-\* rules the code as found keeps calling the replicator with an EMPTY candidate list: a holder remembered from
-\* an earlier rule does not lower the shortage of a later rule - a phantom shortage that copies nothing.)
-Replicates(d) == \E k \in 1..Len(d.tasks) : Len(d.tasks[k].nodes) > 0
-Quiet(hs) == \A n \in hs : LET d == Decide27(n, hs, {}, {}) IN ~Replicates(d) /\ d.del = "none"
-NoTasks(hs) == \A n \in hs : ~Replicates(Decide27(n, hs, {}, {}))
-.\* a check "replicates" when it hands the replicator a task with at least one candidate node. (With overlapping
-\* rules the code as found keeps calling the replicator with an EMPTY candidate list: a holder remembered from
-\* an earlier rule does not lower the shortage of a later rule - a phantom shortage that copies nothing.)
-Replicates(d) == \E k \in 1..Len(d.tasks) : Len(d.tasks[k].nodes) > 0
-Quiet(hs) == \A n \in hs : LET d == Decide27(n, hs, {}, {}) IN ~Replicates(d) /\ d.del = "none"
-NoTasks(hs) == \A n \in hs : ~Replicates(Decide27(n, hs, {}, {}))
-.\* a check "replicates" when it hands the replicator a task with at least one candidate node. (With overlapping
-\* rules the code as found keeps calling the replicator with an EMPTY candidate list: a holder remembered from
-\* an earlier rule does not lower the shortage of a later rule - a phantom shortage that copies nothing.)
-Replicates(d) == \E k \in 1..Len(d.tasks) : Len(d.tasks[k].nodes) > 0
-Quiet(hs) == \A n \in hs : LET d == Decide27(n, hs, {}, {}) IN ~Replicates(d) /\ d.del = "none"
-NoTasks(hs) == \A n \in hs : ~Replicates(Decide27(n, hs, {}, {}))
-L\* a check "replicates" when it hands the replicator a task with at least one candidate node. (With overlapping
-\* rules the code as found keeps calling the replicator with an EMPTY candidate list: a holder remembered from
-\* an earlier rule does not lower the shortage of a later rule - a phantom shortage that copies nothing.)
-Replicates(d) == \E k \in 1..Len(d.tasks) : Len(d.tasks[k].nodes) > 0
-Quiet(hs) == \A n \in hs : LET d == Decide27(n, hs, {}, {}) IN ~Replicates(d) /\ d.del = "none"
-NoTasks(hs) == \A n \in hs : ~Replicates(Decide27(n, hs, {}, {}))
-e\* a check "replicates" when it hands the replicator a task with at least one candidate node. (With overlapping
-\* rules the code as found keeps calling the replicator with an EMPTY candidate list: a holder remembered from
-\* an earlier rule does not lower the shortage of a later rule - a phantom shortage that copies nothing.)
-Replicates(d) == \E k \in 1..Len(d.tasks) : Len(d.tasks[k].nodes) > 0
-Quiet(hs) == \A n \in hs : LET d == Decide27(n, hs, {}, {}) IN ~Replicates(d) /\ d.del = "none"
-NoTasks(hs) == \A n \in hs : ~Replicates(Decide27(n, hs, {}, {}))
-n\* a check "replicates" when it hands the replicator a task with at least one candidate node. (With overlapping
-\* rules the code as found keeps calling the replicator with an EMPTY candidate list: a holder remembered from
-\* an earlier rule does not lower the shortage of a later rule - a phantom shortage that copies nothing.)
-Replicates(d) == \E k \in 1..Len(d.tasks) : Len(d.tasks[k].nodes) > 0
-Quiet(hs) == \A n \in hs : LET d == Decide27(n, hs, {}, {}) IN ~Replicates(d) /\ d.del = "none"
-NoTasks(hs) == \A n \in hs : ~Replicates(Decide27(n, hs, {}, {}))
-(\* a check "replicates" when it hands the replicator a task with at least one candidate node. (With overlapping
-\* rules the code as found keeps calling the replicator with an EMPTY candidate list: a holder remembered from
-\* an earlier rule does not lower the shortage of a later rule - a phantom shortage that copies nothing.)
-Replicates(d) == \E k \in 1..Len(d.tasks) : Len(d.tasks[k].nodes) > 0
-Quiet(hs) == \A n \in hs : LET d == Decide27(n, hs, {}, {}) IN ~Replicates(d) /\ d.del = "none"
-NoTasks(hs) == \A n \in hs : ~Replicates(Decide27(n, hs, {}, {}))
-r\* a check "replicates" when it hands the replicator a task with at least one candidate node. (With overlapping
-\* rules the code as found keeps calling the replicator with an EMPTY candidate list: a holder remembered from
-\* an earlier rule does not lower the shortage of a later rule - a phantom shortage that copies nothing.)
-Replicates(d) == \E k \in 1..Len(d.tasks) : Len(d.tasks[k].nodes) > 0
-Quiet(hs) == \A n \in hs : LET d == Decide27(n, hs, {}, {}) IN ~Replicates(d) /\ d.del = "none"
-NoTasks(hs) == \A n \in hs : ~Replicates(Decide27(n, hs, {}, {}))
-u\* a check "replicates" when it hands the replicator a task with at least one candidate node. (With overlapping
-\* rules the code as found keeps calling the replicator with an EMPTY candidate list: a holder remembered from
-\* an earlier rule does not lower the shortage of a later rule - a phantom shortage that copies nothing.)
-Replicates(d) == \E k \in 1..Len(d.tasks) : Len(d.tasks[k].nodes) > 0
-Quiet(hs) == \A n \in hs : LET d == Decide27(n, hs, {}, {}) IN ~Replicates(d) /\ d.del = "none"
-NoTasks(hs) == \A n \in hs : ~Replicates(Decide27(n, hs, {}, {}))
-l\* a check "replicates" when it hands the replicator a task with at least one candidate node. (With overlapping
-\* rules the code as found keeps calling the replicator with an EMPTY candidate list: a holder remembered from
-\* an earlier rule does not lower the shortage of a later rule - a phantom shortage that copies nothing.)
-Replicates(d) == \E k \in 1..Len(d.tasks) : Len(d.tasks[k].nodes) > 0
-Quiet(hs) == \A n \in hs : LET d == Decide27(n, hs, {}, {}) IN ~Replicates(d) /\ d.del = "none"
-NoTasks(hs) == \A n \in hs : ~Replicates(Decide27(n, hs, {}, {}))
-e\* a check "replicates" when it hands the replicator a task with at least one candidate node. (With overlapping
-\* rules the code as found keeps calling the replicator with an EMPTY candidate list: a holder remembered from
-\* an earlier rule does not lower the shortage of a later rule - a phantom shortage that copies nothing.)
-Replicates(d) == \E k \in 1..Len(d.tasks) : Len(d.tasks[k].nodes) > 0
-Quiet(hs) == \A n \in hs : LET d == Decide27(n, hs, {}, {}) IN ~Replicates(d) /\ d.del = "none"
-NoTasks(hs) == \A n \in hs : ~Replicates(Decide27(n, hs, {}, {}))
-s\* a check "replicates" when it hands the replicator a task with at least one candidate node. (With overlapping
-\* rules the code as found keeps calling the replicator with an EMPTY candidate list: a holder remembered from
-\* an earlier rule does not lower the shortage of a later rule - a phantom shortage that copies nothing.)
-Replicates(d) == \E k \in 1..Len(d.tasks) : Len(d.tasks[k].nodes) > 0
-Quiet(hs) == \A n \in hs : LET d == Decide27(n, hs, {}, {}) IN ~Replicates(d) /\ d.del = "none"
-NoTasks(hs) == \A n \in hs : ~Replicates(Decide27(n, hs, {}, {}))
-)\* a check "replicates" when it hands the replicator a task with at least one candidate node. (With overlapping
-\* rules the code as found keeps calling the replicator with an EMPTY candidate list: a holder remembered from
-\* an earlier rule does not lower the shortage of a later rule - a phantom shortage that copies nothing.)
-Replicates(d) == \E k \in 1..Len(d.tasks) : Len(d.tasks[k].nodes) > 0
-Quiet(hs) == \A n \in hs : LET d == Decide27(n, hs, {}, {}) IN ~Replicates(d) /\ d.del = "none"
-NoTasks(hs) == \A n \in hs : ~Replicates(Decide27(n, hs, {}, {}))
-}\* a check "replicates" when it hands the replicator a task with at least one candidate node. (With overlapping
-\* rules the code as found keeps calling the replicator with an EMPTY candidate list: a holder remembered from
-\* an earlier rule does not lower the shortage of a later rule - a phantom shortage that copies nothing.)
-Replicates(d) == \E k \in 1..Len(d.tasks) : Len(d.tasks[k].nodes) > 0
-Quiet(hs) == \A n \in hs : LET d == Decide27(n, hs, {}, {}) IN ~Replicates(d) /\ d.del = "none"
-NoTasks(hs) == \A n \in hs : ~Replicates(Decide27(n, hs, {}, {}))
-
-\* a check "replicates" when it hands the replicator a task with at least one candidate node. (With overlapping
-\* rules the code as found keeps calling the replicator with an EMPTY candidate list: a holder remembered from
-\* an earlier rule does not lower the shortage of a later rule - a phantom shortage that copies nothing.)
-Replicates(d) == \E k \in 1..Len(d.tasks) : Len(d.tasks[k].nodes) > 0
-Quiet(hs) == \A n \in hs : LET d == Decide27(n, hs, {}, {}) IN ~Replicates(d) /\ d.del = "none"
-NoTasks(hs) == \A n \in hs : ~Replicates(Decide27(n, hs, {}, {}))
-Q\* a check "replicates" when it hands the replicator a task with at least one candidate node. (With overlapping
-\* rules the code as found keeps calling the replicator with an EMPTY candidate list: a holder remembered from
-\* an earlier rule does not lower the shortage of a later rule - a phantom shortage that copies nothing.)
-Replicates(d) == \E k \in 1..Len(d.tasks) : Len(d.tasks[k].nodes) > 0
-Quiet(hs) == \A n \in hs : LET d == Decide27(n, hs, {}, {}) IN ~Replicates(d) /\ d.del = "none"
-NoTasks(hs) == \A n \in hs : ~Replicates(Decide27(n, hs, {}, {}))
-u\* a check "replicates" when it hands the replicator a task with at least one candidate node. (With overlapping
-\* rules the code as found keeps calling the replicator with an EMPTY candidate list: a holder remembered from
-\* an earlier rule does not lower the shortage of a later rule - a phantom shortage that copies nothing.)
-Replicates(d) == \E k \in 1..Len(d.tasks) : Len(d.tasks[k].nodes) > 0
-Quiet(hs) == \A n \in hs : LET d == Decide27(n, hs, {}, {}) IN ~Replicates(d) /\ d.del = "none"
-NoTasks(hs) == \A n \in hs : ~Replicates(Decide27(n, hs, {}, {}))
-i\* a check "replicates" when it hands the replicator a task with at least one candidate node. (With overlapping
-\* rules the code as found keeps calling the replicator with an EMPTY candidate list: a holder remembered from
-\* an earlier rule does not lower the shortage of a later rule - a phantom shortage that copies nothing.)
-Replicates(d) == \E k \in 1..Len(d.tasks) : Len(d.tasks[k].nodes) > 0
-Quiet(hs) == \A n \in hs : LET d == Decide27(n, hs, {}, {}) IN ~Replicates(d) /\ d.del = "none"
-NoTasks(hs) == \A n \in hs : ~Replicates(Decide27(n, hs, {}, {}))
-e\* a check "replicates" when it hands the replicator a task with at least one candidate node. (With overlapping
-\* rules the code as found keeps calling the replicator with an EMPTY candidate list: a holder remembered from
-\* an earlier rule does not lower the shortage of a later rule - a phantom shortage that copies nothing.)
-Replicates(d) == \E k \in 1..Len(d.tasks) : Len(d.tasks[k].nodes) > 0
-Quiet(hs) == \A n \in hs : LET d == Decide27(n, hs, {}, {}) IN ~Replicates(d) /\ d.del = "none"
-NoTasks(hs) == \A n \in hs : ~Replicates(Decide27(n, hs, {}, {}))
-t\* a check "replicates" when it hands the replicator a task with at least one candidate node. (With overlapping
-\* rules the code as found keeps calling the replicator with an EMPTY candidate list: a holder remembered from
-\* an earlier rule does not lower the shortage of a later rule - a phantom shortage that copies nothing.)
-Replicates(d) == \E k \in 1..Len(d.tasks) : Len(d.tasks[k].nodes) > 0
-Quiet(hs) == \A n \in hs : LET d == Decide27(n, hs, {}, {}) IN ~Replicates(d) /\ d.del = "none"
-NoTasks(hs) == \A n \in hs : ~Replicates(Decide27(n, hs, {}, {}))
-(\* a check "replicates" when it hands the replicator a task with at least one candidate node. (With overlapping
-\* rules the code as found keeps calling the replicator with an EMPTY candidate list: a holder remembered from
-\* an earlier rule does not lower the shortage of a later rule - a phantom shortage that copies nothing.)
-Replicates(d) == \E k \in 1..Len(d.tasks) : Len(d.tasks[k].nodes) > 0
-Quiet(hs) == \A n \in hs : LET d == Decide27(n, hs, {}, {}) IN ~Replicates(d) /\ d.del = "none"
-NoTasks(hs) == \A n \in hs : ~Replicates(Decide27(n, hs, {}, {}))
-h\* a check "replicates" when it hands the replicator a task with at least one candidate node. (With overlapping
-\* rules the code as found keeps calling the replicator with an EMPTY candidate list: a holder remembered from
-\* an earlier rule does not lower the shortage of a later rule - a phantom shortage that copies nothing.)
-Replicates(d) == \E k \in 1..Len(d.tasks) : Len(d.tasks[k].nodes) > 0
-Quiet(hs) == \A n \in hs : LET d == Decide27(n, hs, {}, {}) IN ~Replicates(d) /\ d.del = "none"
-NoTasks(hs) == \A n \in hs : ~Replicates(Decide27(n, hs, {}, {}))
-s\* a check "replicates" when it hands the replicator a task with at least one candidate node. (With overlapping
-\* rules the code as found keeps calling the replicator with an EMPTY candidate list: a holder remembered from
-\* an earlier rule does not lower the shortage of a later rule - a phantom shortage that copies nothing.)
-Replicates(d) == \E k \in 1..Len(d.tasks) : Len(d.tasks[k].nodes) > 0
-Quiet(hs) == \A n \in hs : LET d == Decide27(n, hs, {}, {}) IN ~Replicates(d) /\ d.del = "none"
-NoTasks(hs) == \A n \in hs : ~Replicates(Decide27(n, hs, {}, {}))
-)\* a check "replicates" when it hands the replicator a task with at least one candidate node. (With overlapping
-\* rules the code as found keeps calling the replicator with an EMPTY candidate list: a holder remembered from
-\* an earlier rule does not lower the shortage of a later rule - a phantom shortage that copies nothing.)
-Replicates(d) == \E k \in 1..Len(d.tasks) : Len(d.tasks[k].nodes) > 0
-Quiet(hs) == \A n \in hs : LET d == Decide27(n, hs, {}, {}) IN ~Replicates(d) /\ d.del = "none"
-NoTasks(hs) == \A n \in hs : ~Replicates(Decide27(n, hs, {}, {}))
- \* a check "replicates" when it hands the replicator a task with at least one candidate node. (With overlapping
-\* rules the code as found keeps calling the replicator with an EMPTY candidate list: a holder remembered from
-\* an earlier rule does not lower the shortage of a later rule - a phantom shortage that copies nothing.)
-Replicates(d) == \E k \in 1..Len(d.tasks) : Len(d.tasks[k].nodes) > 0
-Quiet(hs) == \A n \in hs : LET d == Decide27(n, hs, {}, {}) IN ~Replicates(d) /\ d.del = "none"
-NoTasks(hs) == \A n \in hs : ~Replicates(Decide27(n, hs, {}, {}))
-=\* a check "replicates" when it hands the replicator a task with at least one candidate node. (With overlapping
-\* rules the code as found keeps calling the replicator with an EMPTY candidate list: a holder remembered from
-\* an earlier rule does not lower the shortage of a later rule - a phantom shortage that copies nothing.)
-Replicates(d) == \E k \in 1..Len(d.tasks) : Len(d.tasks[k].nodes) > 0
-Quiet(hs) == \A n \in hs : LET d == Decide27(n, hs, {}, {}) IN ~Replicates(d) /\ d.del = "none"
-NoTasks(hs) == \A n \in hs : ~Replicates(Decide27(n, hs, {}, {}))
-=\* a check "replicates" when it hands the replicator a task with at least one candidate node. (With overlapping
-\* rules the code as found keeps calling the replicator with an EMPTY candidate list: a holder remembered from
-\* an earlier rule does not lower the shortage of a later rule - a phantom shortage that copies nothing.)
-Replicates(d) == \E k \in 1..Len(d.tasks) : Len(d.tasks[k].nodes) > 0
-Quiet(hs) == \A n \in hs : LET d == Decide27(n, hs, {}, {}) IN ~Replicates(d) /\ d.del = "none"
-NoTasks(hs) == \A n \in hs : ~Replicates(Decide27(n, hs, {}, {}))
- \* a check "replicates" when it hands the replicator a task with at least one candidate node. (With overlapping
-\* rules the code as found keeps calling the replicator with an EMPTY candidate list: a holder remembered from
-\* an earlier rule does not lower the shortage of a later rule - a phantom shortage that copies nothing.)
-Replicates(d) == \E k \in 1..Len(d.tasks) : Len(d.tasks[k].nodes) > 0
-Quiet(hs) == \A n \in hs : LET d == Decide27(n, hs, {}, {}) IN ~Replicates(d) /\ d.del = "none"
-NoTasks(hs) == \A n \in hs : ~Replicates(Decide27(n, hs, {}, {}))
-\\* a check "replicates" when it hands the replicator a task with at least one candidate node. (With overlapping
-\* rules the code as found keeps calling the replicator with an EMPTY candidate list: a holder remembered from
-\* an earlier rule does not lower the shortage of a later rule - a phantom shortage that copies nothing.)
-Replicates(d) == \E k \in 1..Len(d.tasks) : Len(d.tasks[k].nodes) > 0
-Quiet(hs) == \A n \in hs : LET d == Decide27(n, hs, {}, {}) IN ~Replicates(d) /\ d.del = "none"
-NoTasks(hs) == \A n \in hs : ~Replicates(Decide27(n, hs, {}, {}))
-A\* a check "replicates" when it hands the replicator a task with at least one candidate node. (With overlapping
-\* rules the code as found keeps calling the replicator with an EMPTY candidate list: a holder remembered from
-\* an earlier rule does not lower the shortage of a later rule - a phantom shortage that copies nothing.)
-Replicates(d) == \E k \in 1..Len(d.tasks) : Len(d.tasks[k].nodes) > 0
-Quiet(hs) == \A n \in hs : LET d == Decide27(n, hs, {}, {}) IN ~Replicates(d) /\ d.del = "none"
-NoTasks(hs) == \A n \in hs : ~Replicates(Decide27(n, hs, {}, {}))
- \* a check "replicates" when it hands the replicator a task with at least one candidate node. (With overlapping
-\* rules the code as found keeps calling the replicator with an EMPTY candidate list: a holder remembered from
-\* an earlier rule does not lower the shortage of a later rule - a phantom shortage that copies nothing.)
-Replicates(d) == \E k \in 1..Len(d.tasks) : Len(d.tasks[k].nodes) > 0
-Quiet(hs) == \A n \in hs : LET d == Decide27(n, hs, {}, {}) IN ~Replicates(d) /\ d.del = "none"
-NoTasks(hs) == \A n \in hs : ~Replicates(Decide27(n, hs, {}, {}))
-n\* a check "replicates" when it hands the replicator a task with at least one candidate node. (With overlapping
-\* rules the code as found keeps calling the replicator with an EMPTY candidate list: a holder remembered from
-\* an earlier rule does not lower the shortage of a later rule - a phantom shortage that copies nothing.)
-Replicates(d) == \E k \in 1..Len(d.tasks) : Len(d.tasks[k].nodes) > 0
-Quiet(hs) == \A n \in hs : LET d == Decide27(n, hs, {}, {}) IN ~Replicates(d) /\ d.del = "none"
-NoTasks(hs) == \A n \in hs : ~Replicates(Decide27(n, hs, {}, {}))
- \* a check "replicates" when it hands the replicator a task with at least one candidate node. (With overlapping
-\* rules the code as found keeps calling the replicator with an EMPTY candidate list: a holder remembered from
-\* an earlier rule does not lower the shortage of a later rule - a phantom shortage that copies nothing.)
-Replicates(d) == \E k \in 1..Len(d.tasks) : Len(d.tasks[k].nodes) > 0
-Quiet(hs) == \A n \in hs : LET d == Decide27(n, hs, {}, {}) IN ~Replicates(d) /\ d.del = "none"
-NoTasks(hs) == \A n \in hs : ~Replicates(Decide27(n, hs, {}, {}))
-\\* a check "replicates" when it hands the replicator a task with at least one candidate node. (With overlapping
-\* rules the code as found keeps calling the replicator with an EMPTY candidate list: a holder remembered from
-\* an earlier rule does not lower the shortage of a later rule - a phantom shortage that copies nothing.)
-Replicates(d) == \E k \in 1..Len(d.tasks) : Len(d.tasks[k].nodes) > 0
-Quiet(hs) == \A n \in hs : LET d == Decide27(n, hs, {}, {}) IN ~Replicates(d) /\ d.del = "none"
-NoTasks(hs) == \A n \in hs : ~Replicates(Decide27(n, hs, {}, {}))
-i\* a check "replicates" when it hands the replicator a task with at least one candidate node. (With overlapping
-\* rules the code as found keeps calling the replicator with an EMPTY candidate list: a holder remembered from
-\* an earlier rule does not lower the shortage of a later rule - a phantom shortage that copies nothing.)
-Replicates(d) == \E k \in 1..Len(d.tasks) : Len(d.tasks[k].nodes) > 0
-Quiet(hs) == \A n \in hs : LET d == Decide27(n, hs, {}, {}) IN ~Replicates(d) /\ d.del = "none"
-NoTasks(hs) == \A n \in hs : ~Replicates(Decide27(n, hs, {}, {}))
-n\* a check "replicates" when it hands the replicator a task with at least one candidate node. (With overlapping
-\* rules the code as found keeps calling the replicator with an EMPTY candidate list: a holder remembered from
-\* an earlier rule does not lower the shortage of a later rule - a phantom shortage that copies nothing.)
-Replicates(d) == \E k \in 1..Len(d.tasks) : Len(d.tasks[k].nodes) > 0
-Quiet(hs) == \A n \in hs : LET d == Decide27(n, hs, {}, {}) IN ~Replicates(d) /\ d.del = "none"
-NoTasks(hs) == \A n \in hs : ~Replicates(Decide27(n, hs, {}, {}))
- \* a check "replicates" when it hands the replicator a task with at least one candidate node. (With overlapping
-\* rules the code as found keeps calling the replicator with an EMPTY candidate list: a holder remembered from
-\* an earlier rule does not lower the shortage of a later rule - a phantom shortage that copies nothing.)
-Replicates(d) == \E k \in 1..Len(d.tasks) : Len(d.tasks[k].nodes) > 0
-Quiet(hs) == \A n \in hs : LET d == Decide27(n, hs, {}, {}) IN ~Replicates(d) /\ d.del = "none"
-NoTasks(hs) == \A n \in hs : ~Replicates(Decide27(n, hs, {}, {}))
-h\* a check "replicates" when it hands the replicator a task with at least one candidate node. (With overlapping
-\* rules the code as found keeps calling the replicator with an EMPTY candidate list: a holder remembered from
-\* an earlier rule does not lower the shortage of a later rule - a phantom shortage that copies nothing.)
-Replicates(d) == \E k \in 1..Len(d.tasks) : Len(d.tasks[k].nodes) > 0
-Quiet(hs) == \A n \in hs : LET d == Decide27(n, hs, {}, {}) IN ~Replicates(d) /\ d.del = "none"
-NoTasks(hs) == \A n \in hs : ~Replicates(Decide27(n, hs, {}, {}))
-s\* a check "replicates" when it hands the replicator a task with at least one candidate node. (With overlapping
-\* rules the code as found keeps calling the replicator with an EMPTY candidate list: a holder remembered from
-\* an earlier rule does not lower the shortage of a later rule - a phantom shortage that copies nothing.)
-Replicates(d) == \E k \in 1..Len(d.tasks) : Len(d.tasks[k].nodes) > 0
-Quiet(hs) == \A n \in hs : LET d == Decide27(n, hs, {}, {}) IN ~Replicates(d) /\ d.del = "none"
-NoTasks(hs) == \A n \in hs : ~Replicates(Decide27(n, hs, {}, {}))
- \* a check "replicates" when it hands the replicator a task with at least one candidate node. (With overlapping
-\* rules the code as found keeps calling the replicator with an EMPTY candidate list: a holder remembered from
-\* an earlier rule does not lower the shortage of a later rule - a phantom shortage that copies nothing.)
-Replicates(d) == \E k \in 1..Len(d.tasks) : Len(d.tasks[k].nodes) > 0
-Quiet(hs) == \A n \in hs : LET d == Decide27(n, hs, {}, {}) IN ~Replicates(d) /\ d.del = "none"
-NoTasks(hs) == \A n \in hs : ~Replicates(Decide27(n, hs, {}, {}))
-:\* a check "replicates" when it hands the replicator a task with at least one candidate node. (With overlapping
-\* rules the code as found keeps calling the replicator with an EMPTY candidate list: a holder remembered from
-\* an earlier rule does not lower the shortage of a later rule - a phantom shortage that copies nothing.)
-Replicates(d) == \E k \in 1..Len(d.tasks) : Len(d.tasks[k].nodes) > 0
-Quiet(hs) == \A n \in hs : LET d == Decide27(n, hs, {}, {}) IN ~Replicates(d) /\ d.del = "none"
-NoTasks(hs) == \A n \in hs : ~Replicates(Decide27(n, hs, {}, {}))
- \* a check "replicates" when it hands the replicator a task with at least one candidate node. (With overlapping
-\* rules the code as found keeps calling the replicator with an EMPTY candidate list: a holder remembered from
-\* an earlier rule does not lower the shortage of a later rule - a phantom shortage that copies nothing.)
-Replicates(d) == \E k \in 1..Len(d.tasks) : Len(d.tasks[k].nodes) > 0
-Quiet(hs) == \A n \in hs : LET d == Decide27(n, hs, {}, {}) IN ~Replicates(d) /\ d.del = "none"
-NoTasks(hs) == \A n \in hs : ~Replicates(Decide27(n, hs, {}, {}))
-L\* a check "replicates" when it hands the replicator a task with at least one candidate node. (With overlapping
-\* rules the code as found keeps calling the replicator with an EMPTY candidate list: a holder remembered from
-\* an earlier rule does not lower the shortage of a later rule - a phantom shortage that copies nothing.)
-Replicates(d) == \E k \in 1..Len(d.tasks) : Len(d.tasks[k].nodes) > 0
-Quiet(hs) == \A n \in hs : LET d == Decide27(n, hs, {}, {}) IN ~Replicates(d) /\ d.del = "none"
-NoTasks(hs) == \A n \in hs : ~Replicates(Decide27(n, hs, {}, {}))
-E\* a check "replicates" when it hands the replicator a task with at least one candidate node. (With overlapping
-\* rules the code as found keeps calling the replicator with an EMPTY candidate list: a holder remembered from
-\* an earlier rule does not lower the shortage of a later rule - a phantom shortage that copies nothing.)
-Replicates(d) == \E k \in 1..Len(d.tasks) : Len(d.tasks[k].nodes) > 0
-Quiet(hs) == \A n \in hs : LET d == Decide27(n, hs, {}, {}) IN ~Replicates(d) /\ d.del = "none"
-NoTasks(hs) == \A n \in hs : ~Replicates(Decide27(n, hs, {}, {}))
-T\* a check "replicates" when it hands the replicator a task with at least one candidate node. (With overlapping
-\* rules the code as found keeps calling the replicator with an EMPTY candidate list: a holder remembered from
-\* an earlier rule does not lower the shortage of a later rule - a phantom shortage that copies nothing.)
-Replicates(d) == \E k \in 1..Len(d.tasks) : Len(d.tasks[k].nodes) > 0
-Quiet(hs) == \A n \in hs : LET d == Decide27(n, hs, {}, {}) IN ~Replicates(d) /\ d.del = "none"
-NoTasks(hs) == \A n \in hs : ~Replicates(Decide27(n, hs, {}, {}))
- \* a check "replicates" when it hands the replicator a task with at least one candidate node. (With overlapping
-\* rules the code as found keeps calling the replicator with an EMPTY candidate list: a holder remembered from
-\* an earlier rule does not lower the shortage of a later rule - a phantom shortage that copies nothing.)
-Replicates(d) == \E k \in 1..Len(d.tasks) : Len(d.tasks[k].nodes) > 0
-Quiet(hs) == \A n \in hs : LET d == Decide27(n, hs, {}, {}) IN ~Replicates(d) /\ d.del = "none"
-NoTasks(hs) == \A n \in hs : ~Replicates(Decide27(n, hs, {}, {}))
-d\* a check "replicates" when it hands the replicator a task with at least one candidate node. (With overlapping
-\* rules the code as found keeps calling the replicator with an EMPTY candidate list: a holder remembered from
-\* an earlier rule does not lower the shortage of a later rule - a phantom shortage that copies nothing.)
-Replicates(d) == \E k \in 1..Len(d.tasks) : Len(d.tasks[k].nodes) > 0
-Quiet(hs) == \A n \in hs : LET d == Decide27(n, hs, {}, {}) IN ~Replicates(d) /\ d.del = "none"
-NoTasks(hs) == \A n \in hs : ~Replicates(Decide27(n, hs, {}, {}))
- \* a check "replicates" when it hands the replicator a task with at least one candidate node. (With overlapping
-\* rules the code as found keeps calling the replicator with an EMPTY candidate list: a holder remembered from
-\* an earlier rule does not lower the shortage of a later rule - a phantom shortage that copies nothing.)
-Replicates(d) == \E k \in 1..Len(d.tasks) : Len(d.tasks[k].nodes) > 0
-Quiet(hs) == \A n \in hs : LET d == Decide27(n, hs, {}, {}) IN ~Replicates(d) /\ d.del = "none"
-NoTasks(hs) == \A n \in hs : ~Replicates(Decide27(n, hs, {}, {}))
-=\* a check "replicates" when it hands the replicator a task with at least one candidate node. (With overlapping
-\* rules the code as found keeps calling the replicator with an EMPTY candidate list: a holder remembered from
-\* an earlier rule does not lower the shortage of a later rule - a phantom shortage that copies nothing.)
-Replicates(d) == \E k \in 1..Len(d.tasks) : Len(d.tasks[k].nodes) > 0
-Quiet(hs) == \A n \in hs : LET d == Decide27(n, hs, {}, {}) IN ~Replicates(d) /\ d.del = "none"
-NoTasks(hs) == \A n \in hs : ~Replicates(Decide27(n, hs, {}, {}))
-=\* a check "replicates" when it hands the replicator a task with at least one candidate node. (With overlapping
-\* rules the code as found keeps calling the replicator with an EMPTY candidate list: a holder remembered from
-\* an earlier rule does not lower the shortage of a later rule - a phantom shortage that copies nothing.)
-Replicates(d) == \E k \in 1..Len(d.tasks) : Len(d.tasks[k].nodes) > 0
-Quiet(hs) == \A n \in hs : LET d == Decide27(n, hs, {}, {}) IN ~Replicates(d) /\ d.del = "none"
-NoTasks(hs) == \A n \in hs : ~Replicates(Decide27(n, hs, {}, {}))
- \* a check "replicates" when it hands the replicator a task with at least one candidate node. (With overlapping
-\* rules the code as found keeps calling the replicator with an EMPTY candidate list: a holder remembered from
-\* an earlier rule does not lower the shortage of a later rule - a phantom shortage that copies nothing.)
-Replicates(d) == \E k \in 1..Len(d.tasks) : Len(d.tasks[k].nodes) > 0
-Quiet(hs) == \A n \in hs : LET d == Decide27(n, hs, {}, {}) IN ~Replicates(d) /\ d.del = "none"
-NoTasks(hs) == \A n \in hs : ~Replicates(Decide27(n, hs, {}, {}))
-D\* a check "replicates" when it hands the replicator a task with at least one candidate node. (With overlapping
-\* rules the code as found keeps calling the replicator with an EMPTY candidate list: a holder remembered from
-\* an earlier rule does not lower the shortage of a later rule - a phantom shortage that copies nothing.)
-Replicates(d) == \E k \in 1..Len(d.tasks) : Len(d.tasks[k].nodes) > 0
-Quiet(hs) == \A n \in hs : LET d == Decide27(n, hs, {}, {}) IN ~Replicates(d) /\ d.del = "none"
-NoTasks(hs) == \A n \in hs : ~Replicates(Decide27(n, hs, {}, {}))
-e\* a check "replicates" when it hands the replicator a task with at least one candidate node. (With overlapping
-\* rules the code as found keeps calling the replicator with an EMPTY candidate list: a holder remembered from
-\* an earlier rule does not lower the shortage of a later rule - a phantom shortage that copies nothing.)
-Replicates(d) == \E k \in 1..Len(d.tasks) : Len(d.tasks[k].nodes) > 0
-Quiet(hs) == \A n \in hs : LET d == Decide27(n, hs, {}, {}) IN ~Replicates(d) /\ d.del = "none"
-NoTasks(hs) == \A n \in hs : ~Replicates(Decide27(n, hs, {}, {}))
-c\* a check "replicates" when it hands the replicator a task with at least one candidate node. (With overlapping
-\* rules the code as found keeps calling the replicator with an EMPTY candidate list: a holder remembered from
-\* an earlier rule does not lower the shortage of a later rule - a phantom shortage that copies nothing.)
-Replicates(d) == \E k \in 1..Len(d.tasks) : Len(d.tasks[k].nodes) > 0
-Quiet(hs) == \A n \in hs : LET d == Decide27(n, hs, {}, {}) IN ~Replicates(d) /\ d.del = "none"
-NoTasks(hs) == \A n \in hs : ~Replicates(Decide27(n, hs, {}, {}))
-i\* a check "replicates" when it hands the replicator a task with at least one candidate node. (With overlapping
-\* rules the code as found keeps calling the replicator with an EMPTY candidate list: a holder remembered from
-\* an earlier rule does not lower the shortage of a later rule - a phantom shortage that copies nothing.)
-Replicates(d) == \E k \in 1..Len(d.tasks) : Len(d.tasks[k].nodes) > 0
-Quiet(hs) == \A n \in hs : LET d == Decide27(n, hs, {}, {}) IN ~Replicates(d) /\ d.del = "none"
-NoTasks(hs) == \A n \in hs : ~Replicates(Decide27(n, hs, {}, {}))
-d\* a check "replicates" when it hands the replicator a task with at least one candidate node. (With overlapping
-\* rules the code as found keeps calling the replicator with an EMPTY candidate list: a holder remembered from
-\* an earlier rule does not lower the shortage of a later rule - a phantom shortage that copies nothing.)
-Replicates(d) == \E k \in 1..Len(d.tasks) : Len(d.tasks[k].nodes) > 0
-Quiet(hs) == \A n \in hs : LET d == Decide27(n, hs, {}, {}) IN ~Replicates(d) /\ d.del = "none"
-NoTasks(hs) == \A n \in hs : ~Replicates(Decide27(n, hs, {}, {}))
-e\* a check "replicates" when it hands the replicator a task with at least one candidate node. (With overlapping
-\* rules the code as found keeps calling the replicator with an EMPTY candidate list: a holder remembered from
-\* an earlier rule does not lower the shortage of a later rule - a phantom shortage that copies nothing.)
-Replicates(d) == \E k \in 1..Len(d.tasks) : Len(d.tasks[k].nodes) > 0
-Quiet(hs) == \A n \in hs : LET d == Decide27(n, hs, {}, {}) IN ~Replicates(d) /\ d.del = "none"
-NoTasks(hs) == \A n \in hs : ~Replicates(Decide27(n, hs, {}, {}))
-2\* a check "replicates" when it hands the replicator a task with at least one candidate node. (With overlapping
-\* rules the code as found keeps calling the replicator with an EMPTY candidate list: a holder remembered from
-\* an earlier rule does not lower the shortage of a later rule - a phantom shortage that copies nothing.)
-Replicates(d) == \E k \in 1..Len(d.tasks) : Len(d.tasks[k].nodes) > 0
-Quiet(hs) == \A n \in hs : LET d == Decide27(n, hs, {}, {}) IN ~Replicates(d) /\ d.del = "none"
-NoTasks(hs) == \A n \in hs : ~Replicates(Decide27(n, hs, {}, {}))
-7\* a check "replicates" when it hands the replicator a task with at least one candidate node. (With overlapping
-\* rules the code as found keeps calling the replicator with an EMPTY candidate list: a holder remembered from
-\* an earlier rule does not lower the shortage of a later rule - a phantom shortage that copies nothing.)
-Replicates(d) == \E k \in 1..Len(d.tasks) : Len(d.tasks[k].nodes) > 0
-Quiet(hs) == \A n \in hs : LET d == Decide27(n, hs, {}, {}) IN ~Replicates(d) /\ d.del = "none"
-NoTasks(hs) == \A n \in hs : ~Replicates(Decide27(n, hs, {}, {}))
-(\* a check "replicates" when it hands the replicator a task with at least one candidate node. (With overlapping
-\* rules the code as found keeps calling the replicator with an EMPTY candidate list: a holder remembered from
-\* an earlier rule does not lower the shortage of a later rule - a phantom shortage that copies nothing.)
-Replicates(d) == \E k \in 1..Len(d.tasks) : Len(d.tasks[k].nodes) > 0
-Quiet(hs) == \A n \in hs : LET d == Decide27(n, hs, {}, {}) IN ~Replicates(d) /\ d.del = "none"
-NoTasks(hs) == \A n \in hs : ~Replicates(Decide27(n, hs, {}, {}))
-n\* a check "replicates" when it hands the replicator a task with at least one candidate node. (With overlapping
-\* rules the code as found keeps calling the replicator with an EMPTY candidate list: a holder remembered from
-\* an earlier rule does not lower the shortage of a later rule - a phantom shortage that copies nothing.)
-Replicates(d) == \E k \in 1..Len(d.tasks) : Len(d.tasks[k].nodes) > 0
-Quiet(hs) == \A n \in hs : LET d == Decide27(n, hs, {}, {}) IN ~Replicates(d) /\ d.del = "none"
-NoTasks(hs) == \A n \in hs : ~Replicates(Decide27(n, hs, {}, {}))
-,\* a check "replicates" when it hands the replicator a task with at least one candidate node. (With overlapping
-\* rules the code as found keeps calling the replicator with an EMPTY candidate list: a holder remembered from
-\* an earlier rule does not lower the shortage of a later rule - a phantom shortage that copies nothing.)
-Replicates(d) == \E k \in 1..Len(d.tasks) : Len(d.tasks[k].nodes) > 0
-Quiet(hs) == \A n \in hs : LET d == Decide27(n, hs, {}, {}) IN ~Replicates(d) /\ d.del = "none"
-NoTasks(hs) == \A n \in hs : ~Replicates(Decide27(n, hs, {}, {}))
- \* a check "replicates" when it hands the replicator a task with at least one candidate node. (With overlapping
-\* rules the code as found keeps calling the replicator with an EMPTY candidate list: a holder remembered from
-\* an earlier rule does not lower the shortage of a later rule - a phantom shortage that copies nothing.)
-Replicates(d) == \E k \in 1..Len(d.tasks) : Len(d.tasks[k].nodes) > 0
-Quiet(hs) == \A n \in hs : LET d == Decide27(n, hs, {}, {}) IN ~Replicates(d) /\ d.del = "none"
-NoTasks(hs) == \A n \in hs : ~Replicates(Decide27(n, hs, {}, {}))
-h\* a check "replicates" when it hands the replicator a task with at least one candidate node. (With overlapping
-\* rules the code as found keeps calling the replicator with an EMPTY candidate list: a holder remembered from
-\* an earlier rule does not lower the shortage of a later rule - a phantom shortage that copies nothing.)
-Replicates(d) == \E k \in 1..Len(d.tasks) : Len(d.tasks[k].nodes) > 0
-Quiet(hs) == \A n \in hs : LET d == Decide27(n, hs, {}, {}) IN ~Replicates(d) /\ d.del = "none"
-NoTasks(hs) == \A n \in hs : ~Replicates(Decide27(n, hs, {}, {}))
-s\* a check "replicates" when it hands the replicator a task with at least one candidate node. (With overlapping
-\* rules the code as found keeps calling the replicator with an EMPTY candidate list: a holder remembered from
-\* an earlier rule does not lower the shortage of a later rule - a phantom shortage that copies nothing.)
-Replicates(d) == \E k \in 1..Len(d.tasks) : Len(d.tasks[k].nodes) > 0
-Quiet(hs) == \A n \in hs : LET d == Decide27(n, hs, {}, {}) IN ~Replicates(d) /\ d.del = "none"
-NoTasks(hs) == \A n \in hs : ~Replicates(Decide27(n, hs, {}, {}))
-,\* a check "replicates" when it hands the replicator a task with at least one candidate node. (With overlapping
-\* rules the code as found keeps calling the replicator with an EMPTY candidate list: a holder remembered from
-\* an earlier rule does not lower the shortage of a later rule - a phantom shortage that copies nothing.)
-Replicates(d) == \E k \in 1..Len(d.tasks) : Len(d.tasks[k].nodes) > 0
-Quiet(hs) == \A n \in hs : LET d == Decide27(n, hs, {}, {}) IN ~Replicates(d) /\ d.del = "none"
-NoTasks(hs) == \A n \in hs : ~Replicates(Decide27(n, hs, {}, {}))
- \* a check "replicates" when it hands the replicator a task with at least one candidate node. (With overlapping
-\* rules the code as found keeps calling the replicator with an EMPTY candidate list: a holder remembered from
-\* an earlier rule does not lower the shortage of a later rule - a phantom shortage that copies nothing.)
-Replicates(d) == \E k \in 1..Len(d.tasks) : Len(d.tasks[k].nodes) > 0
-Quiet(hs) == \A n \in hs : LET d == Decide27(n, hs, {}, {}) IN ~Replicates(d) /\ d.del = "none"
-NoTasks(hs) == \A n \in hs : ~Replicates(Decide27(n, hs, {}, {}))
-{\* a check "replicates" when it hands the replicator a task with at least one candidate node. (With overlapping
-\* rules the code as found keeps calling the replicator with an EMPTY candidate list: a holder remembered from
-\* an earlier rule does not lower the shortage of a later rule - a phantom shortage that copies nothing.)
-Replicates(d) == \E k \in 1..Len(d.tasks) : Len(d.tasks[k].nodes) > 0
-Quiet(hs) == \A n \in hs : LET d == Decide27(n, hs, {}, {}) IN ~Replicates(d) /\ d.del = "none"
-NoTasks(hs) == \A n \in hs : ~Replicates(Decide27(n, hs, {}, {}))
-}\* a check "replicates" when it hands the replicator a task with at least one candidate node. (With overlapping
-\* rules the code as found keeps calling the replicator with an EMPTY candidate list: a holder remembered from
-\* an earlier rule does not lower the shortage of a later rule - a phantom shortage that copies nothing.)
-Replicates(d) == \E k \in 1..Len(d.tasks) : Len(d.tasks[k].nodes) > 0
-Quiet(hs) == \A n \in hs : LET d == Decide27(n, hs, {}, {}) IN ~Replicates(d) /\ d.del = "none"
-NoTasks(hs) == \A n \in hs : ~Replicates(Decide27(n, hs, {}, {}))
-,\* a check "replicates" when it hands the replicator a task with at least one candidate node. (With overlapping
-\* rules the code as found keeps calling the replicator with an EMPTY candidate list: a holder remembered from
-\* an earlier rule does not lower the shortage of a later rule - a phantom shortage that copies nothing.)
-Replicates(d) == \E k \in 1..Len(d.tasks) : Len(d.tasks[k].nodes) > 0
-Quiet(hs) == \A n \in hs : LET d == Decide27(n, hs, {}, {}) IN ~Replicates(d) /\ d.del = "none"
-NoTasks(hs) == \A n \in hs : ~Replicates(Decide27(n, hs, {}, {}))
- \* a check "replicates" when it hands the replicator a task with at least one candidate node. (With overlapping
-\* rules the code as found keeps calling the replicator with an EMPTY candidate list: a holder remembered from
-\* an earlier rule does not lower the shortage of a later rule - a phantom shortage that copies nothing.)
-Replicates(d) == \E k \in 1..Len(d.tasks) : Len(d.tasks[k].nodes) > 0
-Quiet(hs) == \A n \in hs : LET d == Decide27(n, hs, {}, {}) IN ~Replicates(d) /\ d.del = "none"
-NoTasks(hs) == \A n \in hs : ~Replicates(Decide27(n, hs, {}, {}))
-{\* a check "replicates" when it hands the replicator a task with at least one candidate node. (With overlapping
-\* rules the code as found keeps calling the replicator with an EMPTY candidate list: a holder remembered from
-\* an earlier rule does not lower the shortage of a later rule - a phantom shortage that copies nothing.)
-Replicates(d) == \E k \in 1..Len(d.tasks) : Len(d.tasks[k].nodes) > 0
-Quiet(hs) == \A n \in hs : LET d == Decide27(n, hs, {}, {}) IN ~Replicates(d) /\ d.del = "none"
-NoTasks(hs) == \A n \in hs : ~Replicates(Decide27(n, hs, {}, {}))
-}\* a check "replicates" when it hands the replicator a task with at least one candidate node. (With overlapping
-\* rules the code as found keeps calling the replicator with an EMPTY candidate list: a holder remembered from
-\* an earlier rule does not lower the shortage of a later rule - a phantom shortage that copies nothing.)
-Replicates(d) == \E k \in 1..Len(d.tasks) : Len(d.tasks[k].nodes) > 0
-Quiet(hs) == \A n \in hs : LET d == Decide27(n, hs, {}, {}) IN ~Replicates(d) /\ d.del = "none"
-NoTasks(hs) == \A n \in hs : ~Replicates(Decide27(n, hs, {}, {}))
-)\* a check "replicates" when it hands the replicator a task with at least one candidate node. (With overlapping
-\* rules the code as found keeps calling the replicator with an EMPTY candidate list: a holder remembered from
-\* an earlier rule does not lower the shortage of a later rule - a phantom shortage that copies nothing.)
-Replicates(d) == \E k \in 1..Len(d.tasks) : Len(d.tasks[k].nodes) > 0
-Quiet(hs) == \A n \in hs : LET d == Decide27(n, hs, {}, {}) IN ~Replicates(d) /\ d.del = "none"
-NoTasks(hs) == \A n \in hs : ~Replicates(Decide27(n, hs, {}, {}))
- \* a check "replicates" when it hands the replicator a task with at least one candidate node. (With overlapping
-\* rules the code as found keeps calling the replicator with an EMPTY candidate list: a holder remembered from
-\* an earlier rule does not lower the shortage of a later rule - a phantom shortage that copies nothing.)
-Replicates(d) == \E k \in 1..Len(d.tasks) : Len(d.tasks[k].nodes) > 0
-Quiet(hs) == \A n \in hs : LET d == Decide27(n, hs, {}, {}) IN ~Replicates(d) /\ d.del = "none"
-NoTasks(hs) == \A n \in hs : ~Replicates(Decide27(n, hs, {}, {}))
-I\* a check "replicates" when it hands the replicator a task with at least one candidate node. (With overlapping
-\* rules the code as found keeps calling the replicator with an EMPTY candidate list: a holder remembered from
-\* an earlier rule does not lower the shortage of a later rule - a phantom shortage that copies nothing.)
-Replicates(d) == \E k \in 1..Len(d.tasks) : Len(d.tasks[k].nodes) > 0
-Quiet(hs) == \A n \in hs : LET d == Decide27(n, hs, {}, {}) IN ~Replicates(d) /\ d.del = "none"
-NoTasks(hs) == \A n \in hs : ~Replicates(Decide27(n, hs, {}, {}))
-N\* a check "replicates" when it hands the replicator a task with at least one candidate node. (With overlapping
-\* rules the code as found keeps calling the replicator with an EMPTY candidate list: a holder remembered from
-\* an earlier rule does not lower the shortage of a later rule - a phantom shortage that copies nothing.)
-Replicates(d) == \E k \in 1..Len(d.tasks) : Len(d.tasks[k].nodes) > 0
-Quiet(hs) == \A n \in hs : LET d == Decide27(n, hs, {}, {}) IN ~Replicates(d) /\ d.del = "none"
-NoTasks(hs) == \A n \in hs : ~Replicates(Decide27(n, hs, {}, {}))
- \* a check "replicates" when it hands the replicator a task with at least one candidate node. (With overlapping
-\* rules the code as found keeps calling the replicator with an EMPTY candidate list: a holder remembered from
-\* an earlier rule does not lower the shortage of a later rule - a phantom shortage that copies nothing.)
-Replicates(d) == \E k \in 1..Len(d.tasks) : Len(d.tasks[k].nodes) > 0
-Quiet(hs) == \A n \in hs : LET d == Decide27(n, hs, {}, {}) IN ~Replicates(d) /\ d.del = "none"
-NoTasks(hs) == \A n \in hs : ~Replicates(Decide27(n, hs, {}, {}))
-d\* a check "replicates" when it hands the replicator a task with at least one candidate node. (With overlapping
-\* rules the code as found keeps calling the replicator with an EMPTY candidate list: a holder remembered from
-\* an earlier rule does not lower the shortage of a later rule - a phantom shortage that copies nothing.)
-Replicates(d) == \E k \in 1..Len(d.tasks) : Len(d.tasks[k].nodes) > 0
-Quiet(hs) == \A n \in hs : LET d == Decide27(n, hs, {}, {}) IN ~Replicates(d) /\ d.del = "none"
-NoTasks(hs) == \A n \in hs : ~Replicates(Decide27(n, hs, {}, {}))
-.\* a check "replicates" when it hands the replicator a task with at least one candidate node. (With overlapping
-\* rules the code as found keeps calling the replicator with an EMPTY candidate list: a holder remembered from
-\* an earlier rule does not lower the shortage of a later rule - a phantom shortage that copies nothing.)
-Replicates(d) == \E k \in 1..Len(d.tasks) : Len(d.tasks[k].nodes) > 0
-Quiet(hs) == \A n \in hs : LET d == Decide27(n, hs, {}, {}) IN ~Replicates(d) /\ d.del = "none"
-NoTasks(hs) == \A n \in hs : ~Replicates(Decide27(n, hs, {}, {}))
-t\* a check "replicates" when it hands the replicator a task with at least one candidate node. (With overlapping
-\* rules the code as found keeps calling the replicator with an EMPTY candidate list: a holder remembered from
-\* an earlier rule does not lower the shortage of a later rule - a phantom shortage that copies nothing.)
-Replicates(d) == \E k \in 1..Len(d.tasks) : Len(d.tasks[k].nodes) > 0
-Quiet(hs) == \A n \in hs : LET d == Decide27(n, hs, {}, {}) IN ~Replicates(d) /\ d.del = "none"
-NoTasks(hs) == \A n \in hs : ~Replicates(Decide27(n, hs, {}, {}))
-a\* a check "replicates" when it hands the replicator a task with at least one candidate node. (With overlapping
-\* rules the code as found keeps calling the replicator with an EMPTY candidate list: a holder remembered from
-\* an earlier rule does not lower the shortage of a later rule - a phantom shortage that copies nothing.)
-Replicates(d) == \E k \in 1..Len(d.tasks) : Len(d.tasks[k].nodes) > 0
-Quiet(hs) == \A n \in hs : LET d == Decide27(n, hs, {}, {}) IN ~Replicates(d) /\ d.del = "none"
-NoTasks(hs) == \A n \in hs : ~Replicates(Decide27(n, hs, {}, {}))
-s\* a check "replicates" when it hands the replicator a task with at least one candidate node. (With overlapping
-\* rules the code as found keeps calling the replicator with an EMPTY candidate list: a holder remembered from
-\* an earlier rule does not lower the shortage of a later rule - a phantom shortage that copies nothing.)
-Replicates(d) == \E k \in 1..Len(d.tasks) : Len(d.tasks[k].nodes) > 0
-Quiet(hs) == \A n \in hs : LET d == Decide27(n, hs, {}, {}) IN ~Replicates(d) /\ d.del = "none"
-NoTasks(hs) == \A n \in hs : ~Replicates(Decide27(n, hs, {}, {}))
-k\* a check "replicates" when it hands the replicator a task with at least one candidate node. (With overlapping
-\* rules the code as found keeps calling the replicator with an EMPTY candidate list: a holder remembered from
-\* an earlier rule does not lower the shortage of a later rule - a phantom shortage that copies nothing.)
-Replicates(d) == \E k \in 1..Len(d.tasks) : Len(d.tasks[k].nodes) > 0
-Quiet(hs) == \A n \in hs : LET d == Decide27(n, hs, {}, {}) IN ~Replicates(d) /\ d.del = "none"
-NoTasks(hs) == \A n \in hs : ~Replicates(Decide27(n, hs, {}, {}))
-s\* a check "replicates" when it hands the replicator a task with at least one candidate node. (With overlapping
-\* rules the code as found keeps calling the replicator with an EMPTY candidate list: a holder remembered from
-\* an earlier rule does not lower the shortage of a later rule - a phantom shortage that copies nothing.)
-Replicates(d) == \E k \in 1..Len(d.tasks) : Len(d.tasks[k].nodes) > 0
-Quiet(hs) == \A n \in hs : LET d == Decide27(n, hs, {}, {}) IN ~Replicates(d) /\ d.del = "none"
-NoTasks(hs) == \A n \in hs : ~Replicates(Decide27(n, hs, {}, {}))
- \* a check "replicates" when it hands the replicator a task with at least one candidate node. (With overlapping
-\* rules the code as found keeps calling the replicator with an EMPTY candidate list: a holder remembered from
-\* an earlier rule does not lower the shortage of a later rule - a phantom shortage that copies nothing.)
-Replicates(d) == \E k \in 1..Len(d.tasks) : Len(d.tasks[k].nodes) > 0
-Quiet(hs) == \A n \in hs : LET d == Decide27(n, hs, {}, {}) IN ~Replicates(d) /\ d.del = "none"
-NoTasks(hs) == \A n \in hs : ~Replicates(Decide27(n, hs, {}, {}))
-=\* a check "replicates" when it hands the replicator a task with at least one candidate node. (With overlapping
-\* rules the code as found keeps calling the replicator with an EMPTY candidate list: a holder remembered from
-\* an earlier rule does not lower the shortage of a later rule - a phantom shortage that copies nothing.)
-Replicates(d) == \E k \in 1..Len(d.tasks) : Len(d.tasks[k].nodes) > 0
-Quiet(hs) == \A n \in hs : LET d == Decide27(n, hs, {}, {}) IN ~Replicates(d) /\ d.del = "none"
-NoTasks(hs) == \A n \in hs : ~Replicates(Decide27(n, hs, {}, {}))
- \* a check "replicates" when it hands the replicator a task with at least one candidate node. (With overlapping
-\* rules the code as found keeps calling the replicator with an EMPTY candidate list: a holder remembered from
-\* an earlier rule does not lower the shortage of a later rule - a phantom shortage that copies nothing.)
-Replicates(d) == \E k \in 1..Len(d.tasks) : Len(d.tasks[k].nodes) > 0
-Quiet(hs) == \A n \in hs : LET d == Decide27(n, hs, {}, {}) IN ~Replicates(d) /\ d.del = "none"
-NoTasks(hs) == \A n \in hs : ~Replicates(Decide27(n, hs, {}, {}))
-<\* a check "replicates" when it hands the replicator a task with at least one candidate node. (With overlapping
-\* rules the code as found keeps calling the replicator with an EMPTY candidate list: a holder remembered from
-\* an earlier rule does not lower the shortage of a later rule - a phantom shortage that copies nothing.)
-Replicates(d) == \E k \in 1..Len(d.tasks) : Len(d.tasks[k].nodes) > 0
-Quiet(hs) == \A n \in hs : LET d == Decide27(n, hs, {}, {}) IN ~Replicates(d) /\ d.del = "none"
-NoTasks(hs) == \A n \in hs : ~Replicates(Decide27(n, hs, {}, {}))
-<\* a check "replicates" when it hands the replicator a task with at least one candidate node. (With overlapping
-\* rules the code as found keeps calling the replicator with an EMPTY candidate list: a holder remembered from
-\* an earlier rule does not lower the shortage of a later rule - a phantom shortage that copies nothing.)
-Replicates(d) == \E k \in 1..Len(d.tasks) : Len(d.tasks[k].nodes) > 0
-Quiet(hs) == \A n \in hs : LET d == Decide27(n, hs, {}, {}) IN ~Replicates(d) /\ d.del = "none"
-NoTasks(hs) == \A n \in hs : ~Replicates(Decide27(n, hs, {}, {}))
->\* a check "replicates" when it hands the replicator a task with at least one candidate node. (With overlapping
-\* rules the code as found keeps calling the replicator with an EMPTY candidate list: a holder remembered from
-\* an earlier rule does not lower the shortage of a later rule - a phantom shortage that copies nothing.)
-Replicates(d) == \E k \in 1..Len(d.tasks) : Len(d.tasks[k].nodes) > 0
-Quiet(hs) == \A n \in hs : LET d == Decide27(n, hs, {}, {}) IN ~Replicates(d) /\ d.del = "none"
-NoTasks(hs) == \A n \in hs : ~Replicates(Decide27(n, hs, {}, {}))
->\* a check "replicates" when it hands the replicator a task with at least one candidate node. (With overlapping
-\* rules the code as found keeps calling the replicator with an EMPTY candidate list: a holder remembered from
-\* an earlier rule does not lower the shortage of a later rule - a phantom shortage that copies nothing.)
-Replicates(d) == \E k \in 1..Len(d.tasks) : Len(d.tasks[k].nodes) > 0
-Quiet(hs) == \A n \in hs : LET d == Decide27(n, hs, {}, {}) IN ~Replicates(d) /\ d.del = "none"
-NoTasks(hs) == \A n \in hs : ~Replicates(Decide27(n, hs, {}, {}))
- \* a check "replicates" when it hands the replicator a task with at least one candidate node. (With overlapping
-\* rules the code as found keeps calling the replicator with an EMPTY candidate list: a holder remembered from
-\* an earlier rule does not lower the shortage of a later rule - a phantom shortage that copies nothing.)
-Replicates(d) == \E k \in 1..Len(d.tasks) : Len(d.tasks[k].nodes) > 0
-Quiet(hs) == \A n \in hs : LET d == Decide27(n, hs, {}, {}) IN ~Replicates(d) /\ d.del = "none"
-NoTasks(hs) == \A n \in hs : ~Replicates(Decide27(n, hs, {}, {}))
-/\* a check "replicates" when it hands the replicator a task with at least one candidate node. (With overlapping
-\* rules the code as found keeps calling the replicator with an EMPTY candidate list: a holder remembered from
-\* an earlier rule does not lower the shortage of a later rule - a phantom shortage that copies nothing.)
-Replicates(d) == \E k \in 1..Len(d.tasks) : Len(d.tasks[k].nodes) > 0
-Quiet(hs) == \A n \in hs : LET d == Decide27(n, hs, {}, {}) IN ~Replicates(d) /\ d.del = "none"
-NoTasks(hs) == \A n \in hs : ~Replicates(Decide27(n, hs, {}, {}))
-\\* a check "replicates" when it hands the replicator a task with at least one candidate node. (With overlapping
-\* rules the code as found keeps calling the replicator with an EMPTY candidate list: a holder remembered from
-\* an earlier rule does not lower the shortage of a later rule - a phantom shortage that copies nothing.)
-Replicates(d) == \E k \in 1..Len(d.tasks) : Len(d.tasks[k].nodes) > 0
-Quiet(hs) == \A n \in hs : LET d == Decide27(n, hs, {}, {}) IN ~Replicates(d) /\ d.del = "none"
-NoTasks(hs) == \A n \in hs : ~Replicates(Decide27(n, hs, {}, {}))
- \* a check "replicates" when it hands the replicator a task with at least one candidate node. (With overlapping
-\* rules the code as found keeps calling the replicator with an EMPTY candidate list: a holder remembered from
-\* an earlier rule does not lower the shortage of a later rule - a phantom shortage that copies nothing.)
-Replicates(d) == \E k \in 1..Len(d.tasks) : Len(d.tasks[k].nodes) > 0
-Quiet(hs) == \A n \in hs : LET d == Decide27(n, hs, {}, {}) IN ~Replicates(d) /\ d.del = "none"
-NoTasks(hs) == \A n \in hs : ~Replicates(Decide27(n, hs, {}, {}))
-d\* a check "replicates" when it hands the replicator a task with at least one candidate node. (With overlapping
-\* rules the code as found keeps calling the replicator with an EMPTY candidate list: a holder remembered from
-\* an earlier rule does not lower the shortage of a later rule - a phantom shortage that copies nothing.)
-Replicates(d) == \E k \in 1..Len(d.tasks) : Len(d.tasks[k].nodes) > 0
-Quiet(hs) == \A n \in hs : LET d == Decide27(n, hs, {}, {}) IN ~Replicates(d) /\ d.del = "none"
-NoTasks(hs) == \A n \in hs : ~Replicates(Decide27(n, hs, {}, {}))
-.\* a check "replicates" when it hands the replicator a task with at least one candidate node. (With overlapping
-\* rules the code as found keeps calling the replicator with an EMPTY candidate list: a holder remembered from
-\* an earlier rule does not lower the shortage of a later rule - a phantom shortage that copies nothing.)
-Replicates(d) == \E k \in 1..Len(d.tasks) : Len(d.tasks[k].nodes) > 0
-Quiet(hs) == \A n \in hs : LET d == Decide27(n, hs, {}, {}) IN ~Replicates(d) /\ d.del = "none"
-NoTasks(hs) == \A n \in hs : ~Replicates(Decide27(n, hs, {}, {}))
-d\* a check "replicates" when it hands the replicator a task with at least one candidate node. (With overlapping
-\* rules the code as found keeps calling the replicator with an EMPTY candidate list: a holder remembered from
-\* an earlier rule does not lower the shortage of a later rule - a phantom shortage that copies nothing.)
-Replicates(d) == \E k \in 1..Len(d.tasks) : Len(d.tasks[k].nodes) > 0
-Quiet(hs) == \A n \in hs : LET d == Decide27(n, hs, {}, {}) IN ~Replicates(d) /\ d.del = "none"
-NoTasks(hs) == \A n \in hs : ~Replicates(Decide27(n, hs, {}, {}))
-e\* a check "replicates" when it hands the replicator a task with at least one candidate node. (With overlapping
-\* rules the code as found keeps calling the replicator with an EMPTY candidate list: a holder remembered from
-\* an earlier rule does not lower the shortage of a later rule - a phantom shortage that copies nothing.)
-Replicates(d) == \E k \in 1..Len(d.tasks) : Len(d.tasks[k].nodes) > 0
-Quiet(hs) == \A n \in hs : LET d == Decide27(n, hs, {}, {}) IN ~Replicates(d) /\ d.del = "none"
-NoTasks(hs) == \A n \in hs : ~Replicates(Decide27(n, hs, {}, {}))
-l\* a check "replicates" when it hands the replicator a task with at least one candidate node. (With overlapping
-\* rules the code as found keeps calling the replicator with an EMPTY candidate list: a holder remembered from
-\* an earlier rule does not lower the shortage of a later rule - a phantom shortage that copies nothing.)
-Replicates(d) == \E k \in 1..Len(d.tasks) : Len(d.tasks[k].nodes) > 0
-Quiet(hs) == \A n \in hs : LET d == Decide27(n, hs, {}, {}) IN ~Replicates(d) /\ d.del = "none"
-NoTasks(hs) == \A n \in hs : ~Replicates(Decide27(n, hs, {}, {}))
- \* a check "replicates" when it hands the replicator a task with at least one candidate node. (With overlapping
-\* rules the code as found keeps calling the replicator with an EMPTY candidate list: a holder remembered from
-\* an earlier rule does not lower the shortage of a later rule - a phantom shortage that copies nothing.)
-Replicates(d) == \E k \in 1..Len(d.tasks) : Len(d.tasks[k].nodes) > 0
-Quiet(hs) == \A n \in hs : LET d == Decide27(n, hs, {}, {}) IN ~Replicates(d) /\ d.del = "none"
-NoTasks(hs) == \A n \in hs : ~Replicates(Decide27(n, hs, {}, {}))
-=\* a check "replicates" when it hands the replicator a task with at least one candidate node. (With overlapping
-\* rules the code as found keeps calling the replicator with an EMPTY candidate list: a holder remembered from
-\* an earlier rule does not lower the shortage of a later rule - a phantom shortage that copies nothing.)
-Replicates(d) == \E k \in 1..Len(d.tasks) : Len(d.tasks[k].nodes) > 0
-Quiet(hs) == \A n \in hs : LET d == Decide27(n, hs, {}, {}) IN ~Replicates(d) /\ d.del = "none"
-NoTasks(hs) == \A n \in hs : ~Replicates(Decide27(n, hs, {}, {}))
- \* a check "replicates" when it hands the replicator a task with at least one candidate node. (With overlapping
-\* rules the code as found keeps calling the replicator with an EMPTY candidate list: a holder remembered from
-\* an earlier rule does not lower the shortage of a later rule - a phantom shortage that copies nothing.)
-Replicates(d) == \E k \in 1..Len(d.tasks) : Len(d.tasks[k].nodes) > 0
-Quiet(hs) == \A n \in hs : LET d == Decide27(n, hs, {}, {}) IN ~Replicates(d) /\ d.del = "none"
-NoTasks(hs) == \A n \in hs : ~Replicates(Decide27(n, hs, {}, {}))
-"\* a check "replicates" when it hands the replicator a task with at least one candidate node. (With overlapping
-\* rules the code as found keeps calling the replicator with an EMPTY candidate list: a holder remembered from
-\* an earlier rule does not lower the shortage of a later rule - a phantom shortage that copies nothing.)
-Replicates(d) == \E k \in 1..Len(d.tasks) : Len(d.tasks[k].nodes) > 0
-Quiet(hs) == \A n \in hs : LET d == Decide27(n, hs, {}, {}) IN ~Replicates(d) /\ d.del = "none"
-NoTasks(hs) == \A n \in hs : ~Replicates(Decide27(n, hs, {}, {}))
-n\* a check "replicates" when it hands the replicator a task with at least one candidate node. (With overlapping
-\* rules the code as found keeps calling the replicator with an EMPTY candidate list: a holder remembered from
-\* an earlier rule does not lower the shortage of a later rule - a phantom shortage that copies nothing.)
-Replicates(d) == \E k \in 1..Len(d.tasks) : Len(d.tasks[k].nodes) > 0
-Quiet(hs) == \A n \in hs : LET d == Decide27(n, hs, {}, {}) IN ~Replicates(d) /\ d.del = "none"
-NoTasks(hs) == \A n \in hs : ~Replicates(Decide27(n, hs, {}, {}))
-o\* a check "replicates" when it hands the replicator a task with at least one candidate node. (With overlapping
-\* rules the code as found keeps calling the replicator with an EMPTY candidate list: a holder remembered from
-\* an earlier rule does not lower the shortage of a later rule - a phantom shortage that copies nothing.)
-Replicates(d) == \E k \in 1..Len(d.tasks) : Len(d.tasks[k].nodes) > 0
-Quiet(hs) == \A n \in hs : LET d == Decide27(n, hs, {}, {}) IN ~Replicates(d) /\ d.del = "none"
-NoTasks(hs) == \A n \in hs : ~Replicates(Decide27(n, hs, {}, {}))
-n\* a check "replicates" when it hands the replicator a task with at least one candidate node. (With overlapping
-\* rules the code as found keeps calling the replicator with an EMPTY candidate list: a holder remembered from
-\* an earlier rule does not lower the shortage of a later rule - a phantom shortage that copies nothing.)
-Replicates(d) == \E k \in 1..Len(d.tasks) : Len(d.tasks[k].nodes) > 0
-Quiet(hs) == \A n \in hs : LET d == Decide27(n, hs, {}, {}) IN ~Replicates(d) /\ d.del = "none"
-NoTasks(hs) == \A n \in hs : ~Replicates(Decide27(n, hs, {}, {}))
-e\* a check "replicates" when it hands the replicator a task with at least one candidate node. (With overlapping
-\* rules the code as found keeps calling the replicator with an EMPTY candidate list: a holder remembered from
-\* an earlier rule does not lower the shortage of a later rule - a phantom shortage that copies nothing.)
-Replicates(d) == \E k \in 1..Len(d.tasks) : Len(d.tasks[k].nodes) > 0
-Quiet(hs) == \A n \in hs : LET d == Decide27(n, hs, {}, {}) IN ~Replicates(d) /\ d.del = "none"
-NoTasks(hs) == \A n \in hs : ~Replicates(Decide27(n, hs, {}, {}))
-"\* a check "replicates" when it hands the replicator a task with at least one candidate node. (With overlapping
-\* rules the code as found keeps calling the replicator with an EMPTY candidate list: a holder remembered from
-\* an earlier rule does not lower the shortage of a later rule - a phantom shortage that copies nothing.)
-Replicates(d) == \E k \in 1..Len(d.tasks) : Len(d.tasks[k].nodes) > 0
-Quiet(hs) == \A n \in hs : LET d == Decide27(n, hs, {}, {}) IN ~Replicates(d) /\ d.del = "none"
-NoTasks(hs) == \A n \in hs : ~Replicates(Decide27(n, hs, {}, {}))
-
-\* a check "replicates" when it hands the replicator a task with at least one candidate node. (With overlapping
-\* rules the code as found keeps calling the replicator with an EMPTY candidate list: a holder remembered from
-\* an earlier rule does not lower the shortage of a later rule - a phantom shortage that copies nothing.)
-Replicates(d) == \E k \in 1..Len(d.tasks) : Len(d.tasks[k].nodes) > 0
-Quiet(hs) == \A n \in hs : LET d == Decide27(n, hs, {}, {}) IN ~Replicates(d) /\ d.del = "none"
-NoTasks(hs) == \A n \in hs : ~Replicates(Decide27(n, hs, {}, {}))
-N\* a check "replicates" when it hands the replicator a task with at least one candidate node. (With overlapping
-\* rules the code as found keeps calling the replicator with an EMPTY candidate list: a holder remembered from
-\* an earlier rule does not lower the shortage of a later rule - a phantom shortage that copies nothing.)
-Replicates(d) == \E k \in 1..Len(d.tasks) : Len(d.tasks[k].nodes) > 0
-Quiet(hs) == \A n \in hs : LET d == Decide27(n, hs, {}, {}) IN ~Replicates(d) /\ d.del = "none"
-NoTasks(hs) == \A n \in hs : ~Replicates(Decide27(n, hs, {}, {}))
-o\* a check "replicates" when it hands the replicator a task with at least one candidate node. (With overlapping
-\* rules the code as found keeps calling the replicator with an EMPTY candidate list: a holder remembered from
-\* an earlier rule does not lower the shortage of a later rule - a phantom shortage that copies nothing.)
-Replicates(d) == \E k \in 1..Len(d.tasks) : Len(d.tasks[k].nodes) > 0
-Quiet(hs) == \A n \in hs : LET d == Decide27(n, hs, {}, {}) IN ~Replicates(d) /\ d.del = "none"
-NoTasks(hs) == \A n \in hs : ~Replicates(Decide27(n, hs, {}, {}))
-T\* a check "replicates" when it hands the replicator a task with at least one candidate node. (With overlapping
-\* rules the code as found keeps calling the replicator with an EMPTY candidate list: a holder remembered from
-\* an earlier rule does not lower the shortage of a later rule - a phantom shortage that copies nothing.)
-Replicates(d) == \E k \in 1..Len(d.tasks) : Len(d.tasks[k].nodes) > 0
-Quiet(hs) == \A n \in hs : LET d == Decide27(n, hs, {}, {}) IN ~Replicates(d) /\ d.del = "none"
-NoTasks(hs) == \A n \in hs : ~Replicates(Decide27(n, hs, {}, {}))
-a\* a check "replicates" when it hands the replicator a task with at least one candidate node. (With overlapping
-\* rules the code as found keeps calling the replicator with an EMPTY candidate list: a holder remembered from
-\* an earlier rule does not lower the shortage of a later rule - a phantom shortage that copies nothing.)
-Replicates(d) == \E k \in 1..Len(d.tasks) : Len(d.tasks[k].nodes) > 0
-Quiet(hs) == \A n \in hs : LET d == Decide27(n, hs, {}, {}) IN ~Replicates(d) /\ d.del = "none"
-NoTasks(hs) == \A n \in hs : ~Replicates(Decide27(n, hs, {}, {}))
-s\* a check "replicates" when it hands the replicator a task with at least one candidate node. (With overlapping
-\* rules the code as found keeps calling the replicator with an EMPTY candidate list: a holder remembered from
-\* an earlier rule does not lower the shortage of a later rule - a phantom shortage that copies nothing.)
-Replicates(d) == \E k \in 1..Len(d.tasks) : Len(d.tasks[k].nodes) > 0
-Quiet(hs) == \A n \in hs : LET d == Decide27(n, hs, {}, {}) IN ~Replicates(d) /\ d.del = "none"
-NoTasks(hs) == \A n \in hs : ~Replicates(Decide27(n, hs, {}, {}))
-k\* a check "replicates" when it hands the replicator a task with at least one candidate node. (With overlapping
-\* rules the code as found keeps calling the replicator with an EMPTY candidate list: a holder remembered from
-\* an earlier rule does not lower the shortage of a later rule - a phantom shortage that copies nothing.)
-Replicates(d) == \E k \in 1..Len(d.tasks) : Len(d.tasks[k].nodes) > 0
-Quiet(hs) == \A n \in hs : LET d == Decide27(n, hs, {}, {}) IN ~Replicates(d) /\ d.del = "none"
-NoTasks(hs) == \A n \in hs : ~Replicates(Decide27(n, hs, {}, {}))
-s\* a check "replicates" when it hands the replicator a task with at least one candidate node. (With overlapping
-\* rules the code as found keeps calling the replicator with an EMPTY candidate list: a holder remembered from
-\* an earlier rule does not lower the shortage of a later rule - a phantom shortage that copies nothing.)
-Replicates(d) == \E k \in 1..Len(d.tasks) : Len(d.tasks[k].nodes) > 0
-Quiet(hs) == \A n \in hs : LET d == Decide27(n, hs, {}, {}) IN ~Replicates(d) /\ d.del = "none"
-NoTasks(hs) == \A n \in hs : ~Replicates(Decide27(n, hs, {}, {}))
-(\* a check "replicates" when it hands the replicator a task with at least one candidate node. (With overlapping
-\* rules the code as found keeps calling the replicator with an EMPTY candidate list: a holder remembered from
-\* an earlier rule does not lower the shortage of a later rule - a phantom shortage that copies nothing.)
-Replicates(d) == \E k \in 1..Len(d.tasks) : Len(d.tasks[k].nodes) > 0
-Quiet(hs) == \A n \in hs : LET d == Decide27(n, hs, {}, {}) IN ~Replicates(d) /\ d.del = "none"
-NoTasks(hs) == \A n \in hs : ~Replicates(Decide27(n, hs, {}, {}))
-h\* a check "replicates" when it hands the replicator a task with at least one candidate node. (With overlapping
-\* rules the code as found keeps calling the replicator with an EMPTY candidate list: a holder remembered from
-\* an earlier rule does not lower the shortage of a later rule - a phantom shortage that copies nothing.)
-Replicates(d) == \E k \in 1..Len(d.tasks) : Len(d.tasks[k].nodes) > 0
-Quiet(hs) == \A n \in hs : LET d == Decide27(n, hs, {}, {}) IN ~Replicates(d) /\ d.del = "none"
-NoTasks(hs) == \A n \in hs : ~Replicates(Decide27(n, hs, {}, {}))
-s\* a check "replicates" when it hands the replicator a task with at least one candidate node. (With overlapping
-\* rules the code as found keeps calling the replicator with an EMPTY candidate list: a holder remembered from
-\* an earlier rule does not lower the shortage of a later rule - a phantom shortage that copies nothing.)
-Replicates(d) == \E k \in 1..Len(d.tasks) : Len(d.tasks[k].nodes) > 0
-Quiet(hs) == \A n \in hs : LET d == Decide27(n, hs, {}, {}) IN ~Replicates(d) /\ d.del = "none"
-NoTasks(hs) == \A n \in hs : ~Replicates(Decide27(n, hs, {}, {}))
-)\* a check "replicates" when it hands the replicator a task with at least one candidate node. (With overlapping
-\* rules the code as found keeps calling the replicator with an EMPTY candidate list: a holder remembered from
-\* an earlier rule does not lower the shortage of a later rule - a phantom shortage that copies nothing.)
-Replicates(d) == \E k \in 1..Len(d.tasks) : Len(d.tasks[k].nodes) > 0
-Quiet(hs) == \A n \in hs : LET d == Decide27(n, hs, {}, {}) IN ~Replicates(d) /\ d.del = "none"
-NoTasks(hs) == \A n \in hs : ~Replicates(Decide27(n, hs, {}, {}))
- \* a check "replicates" when it hands the replicator a task with at least one candidate node. (With overlapping
-\* rules the code as found keeps calling the replicator with an EMPTY candidate list: a holder remembered from
-\* an earlier rule does not lower the shortage of a later rule - a phantom shortage that copies nothing.)
-Replicates(d) == \E k \in 1..Len(d.tasks) : Len(d.tasks[k].nodes) > 0
-Quiet(hs) == \A n \in hs : LET d == Decide27(n, hs, {}, {}) IN ~Replicates(d) /\ d.del = "none"
-NoTasks(hs) == \A n \in hs : ~Replicates(Decide27(n, hs, {}, {}))
-=\* a check "replicates" when it hands the replicator a task with at least one candidate node. (With overlapping
-\* rules the code as found keeps calling the replicator with an EMPTY candidate list: a holder remembered from
-\* an earlier rule does not lower the shortage of a later rule - a phantom shortage that copies nothing.)
-Replicates(d) == \E k \in 1..Len(d.tasks) : Len(d.tasks[k].nodes) > 0
-Quiet(hs) == \A n \in hs : LET d == Decide27(n, hs, {}, {}) IN ~Replicates(d) /\ d.del = "none"
-NoTasks(hs) == \A n \in hs : ~Replicates(Decide27(n, hs, {}, {}))
-=\* a check "replicates" when it hands the replicator a task with at least one candidate node. (With overlapping
-\* rules the code as found keeps calling the replicator with an EMPTY candidate list: a holder remembered from
-\* an earlier rule does not lower the shortage of a later rule - a phantom shortage that copies nothing.)
-Replicates(d) == \E k \in 1..Len(d.tasks) : Len(d.tasks[k].nodes) > 0
-Quiet(hs) == \A n \in hs : LET d == Decide27(n, hs, {}, {}) IN ~Replicates(d) /\ d.del = "none"
-NoTasks(hs) == \A n \in hs : ~Replicates(Decide27(n, hs, {}, {}))
- \* a check "replicates" when it hands the replicator a task with at least one candidate node. (With overlapping
-\* rules the code as found keeps calling the replicator with an EMPTY candidate list: a holder remembered from
-\* an earlier rule does not lower the shortage of a later rule - a phantom shortage that copies nothing.)
-Replicates(d) == \E k \in 1..Len(d.tasks) : Len(d.tasks[k].nodes) > 0
-Quiet(hs) == \A n \in hs : LET d == Decide27(n, hs, {}, {}) IN ~Replicates(d) /\ d.del = "none"
-NoTasks(hs) == \A n \in hs : ~Replicates(Decide27(n, hs, {}, {}))
-\\* a check "replicates" when it hands the replicator a task with at least one candidate node. (With overlapping
-\* rules the code as found keeps calling the replicator with an EMPTY candidate list: a holder remembered from
-\* an earlier rule does not lower the shortage of a later rule - a phantom shortage that copies nothing.)
-Replicates(d) == \E k \in 1..Len(d.tasks) : Len(d.tasks[k].nodes) > 0
-Quiet(hs) == \A n \in hs : LET d == Decide27(n, hs, {}, {}) IN ~Replicates(d) /\ d.del = "none"
-NoTasks(hs) == \A n \in hs : ~Replicates(Decide27(n, hs, {}, {}))
-A\* a check "replicates" when it hands the replicator a task with at least one candidate node. (With overlapping
-\* rules the code as found keeps calling the replicator with an EMPTY candidate list: a holder remembered from
-\* an earlier rule does not lower the shortage of a later rule - a phantom shortage that copies nothing.)
-Replicates(d) == \E k \in 1..Len(d.tasks) : Len(d.tasks[k].nodes) > 0
-Quiet(hs) == \A n \in hs : LET d == Decide27(n, hs, {}, {}) IN ~Replicates(d) /\ d.del = "none"
-NoTasks(hs) == \A n \in hs : ~Replicates(Decide27(n, hs, {}, {}))
- \* a check "replicates" when it hands the replicator a task with at least one candidate node. (With overlapping
-\* rules the code as found keeps calling the replicator with an EMPTY candidate list: a holder remembered from
-\* an earlier rule does not lower the shortage of a later rule - a phantom shortage that copies nothing.)
-Replicates(d) == \E k \in 1..Len(d.tasks) : Len(d.tasks[k].nodes) > 0
-Quiet(hs) == \A n \in hs : LET d == Decide27(n, hs, {}, {}) IN ~Replicates(d) /\ d.del = "none"
-NoTasks(hs) == \A n \in hs : ~Replicates(Decide27(n, hs, {}, {}))
-n\* a check "replicates" when it hands the replicator a task with at least one candidate node. (With overlapping
-\* rules the code as found keeps calling the replicator with an EMPTY candidate list: a holder remembered from
-\* an earlier rule does not lower the shortage of a later rule - a phantom shortage that copies nothing.)
-Replicates(d) == \E k \in 1..Len(d.tasks) : Len(d.tasks[k].nodes) > 0
-Quiet(hs) == \A n \in hs : LET d == Decide27(n, hs, {}, {}) IN ~Replicates(d) /\ d.del = "none"
-NoTasks(hs) == \A n \in hs : ~Replicates(Decide27(n, hs, {}, {}))
- \* a check "replicates" when it hands the replicator a task with at least one candidate node. (With overlapping
-\* rules the code as found keeps calling the replicator with an EMPTY candidate list: a holder remembered from
-\* an earlier rule does not lower the shortage of a later rule - a phantom shortage that copies nothing.)
-Replicates(d) == \E k \in 1..Len(d.tasks) : Len(d.tasks[k].nodes) > 0
-Quiet(hs) == \A n \in hs : LET d == Decide27(n, hs, {}, {}) IN ~Replicates(d) /\ d.del = "none"
-NoTasks(hs) == \A n \in hs : ~Replicates(Decide27(n, hs, {}, {}))
-\\* a check "replicates" when it hands the replicator a task with at least one candidate node. (With overlapping
-\* rules the code as found keeps calling the replicator with an EMPTY candidate list: a holder remembered from
-\* an earlier rule does not lower the shortage of a later rule - a phantom shortage that copies nothing.)
-Replicates(d) == \E k \in 1..Len(d.tasks) : Len(d.tasks[k].nodes) > 0
-Quiet(hs) == \A n \in hs : LET d == Decide27(n, hs, {}, {}) IN ~Replicates(d) /\ d.del = "none"
-NoTasks(hs) == \A n \in hs : ~Replicates(Decide27(n, hs, {}, {}))
-i\* a check "replicates" when it hands the replicator a task with at least one candidate node. (With overlapping
-\* rules the code as found keeps calling the replicator with an EMPTY candidate list: a holder remembered from
-\* an earlier rule does not lower the shortage of a later rule - a phantom shortage that copies nothing.)
-Replicates(d) == \E k \in 1..Len(d.tasks) : Len(d.tasks[k].nodes) > 0
-Quiet(hs) == \A n \in hs : LET d == Decide27(n, hs, {}, {}) IN ~Replicates(d) /\ d.del = "none"
-NoTasks(hs) == \A n \in hs : ~Replicates(Decide27(n, hs, {}, {}))
-n\* a check "replicates" when it hands the replicator a task with at least one candidate node. (With overlapping
-\* rules the code as found keeps calling the replicator with an EMPTY candidate list: a holder remembered from
-\* an earlier rule does not lower the shortage of a later rule - a phantom shortage that copies nothing.)
-Replicates(d) == \E k \in 1..Len(d.tasks) : Len(d.tasks[k].nodes) > 0
-Quiet(hs) == \A n \in hs : LET d == Decide27(n, hs, {}, {}) IN ~Replicates(d) /\ d.del = "none"
-NoTasks(hs) == \A n \in hs : ~Replicates(Decide27(n, hs, {}, {}))
- \* a check "replicates" when it hands the replicator a task with at least one candidate node. (With overlapping
-\* rules the code as found keeps calling the replicator with an EMPTY candidate list: a holder remembered from
-\* an earlier rule does not lower the shortage of a later rule - a phantom shortage that copies nothing.)
-Replicates(d) == \E k \in 1..Len(d.tasks) : Len(d.tasks[k].nodes) > 0
-Quiet(hs) == \A n \in hs : LET d == Decide27(n, hs, {}, {}) IN ~Replicates(d) /\ d.del = "none"
-NoTasks(hs) == \A n \in hs : ~Replicates(Decide27(n, hs, {}, {}))
-h\* a check "replicates" when it hands the replicator a task with at least one candidate node. (With overlapping
-\* rules the code as found keeps calling the replicator with an EMPTY candidate list: a holder remembered from
-\* an earlier rule does not lower the shortage of a later rule - a phantom shortage that copies nothing.)
-Replicates(d) == \E k \in 1..Len(d.tasks) : Len(d.tasks[k].nodes) > 0
-Quiet(hs) == \A n \in hs : LET d == Decide27(n, hs, {}, {}) IN ~Replicates(d) /\ d.del = "none"
-NoTasks(hs) == \A n \in hs : ~Replicates(Decide27(n, hs, {}, {}))
-s\* a check "replicates" when it hands the replicator a task with at least one candidate node. (With overlapping
-\* rules the code as found keeps calling the replicator with an EMPTY candidate list: a holder remembered from
-\* an earlier rule does not lower the shortage of a later rule - a phantom shortage that copies nothing.)
-Replicates(d) == \E k \in 1..Len(d.tasks) : Len(d.tasks[k].nodes) > 0
-Quiet(hs) == \A n \in hs : LET d == Decide27(n, hs, {}, {}) IN ~Replicates(d) /\ d.del = "none"
-NoTasks(hs) == \A n \in hs : ~Replicates(Decide27(n, hs, {}, {}))
- \* a check "replicates" when it hands the replicator a task with at least one candidate node. (With overlapping
-\* rules the code as found keeps calling the replicator with an EMPTY candidate list: a holder remembered from
-\* an earlier rule does not lower the shortage of a later rule - a phantom shortage that copies nothing.)
-Replicates(d) == \E k \in 1..Len(d.tasks) : Len(d.tasks[k].nodes) > 0
-Quiet(hs) == \A n \in hs : LET d == Decide27(n, hs, {}, {}) IN ~Replicates(d) /\ d.del = "none"
-NoTasks(hs) == \A n \in hs : ~Replicates(Decide27(n, hs, {}, {}))
-:\* a check "replicates" when it hands the replicator a task with at least one candidate node. (With overlapping
-\* rules the code as found keeps calling the replicator with an EMPTY candidate list: a holder remembered from
-\* an earlier rule does not lower the shortage of a later rule - a phantom shortage that copies nothing.)
-Replicates(d) == \E k \in 1..Len(d.tasks) : Len(d.tasks[k].nodes) > 0
-Quiet(hs) == \A n \in hs : LET d == Decide27(n, hs, {}, {}) IN ~Replicates(d) /\ d.del = "none"
-NoTasks(hs) == \A n \in hs : ~Replicates(Decide27(n, hs, {}, {}))
- \* a check "replicates" when it hands the replicator a task with at least one candidate node. (With overlapping
-\* rules the code as found keeps calling the replicator with an EMPTY candidate list: a holder remembered from
-\* an earlier rule does not lower the shortage of a later rule - a phantom shortage that copies nothing.)
-Replicates(d) == \E k \in 1..Len(d.tasks) : Len(d.tasks[k].nodes) > 0
-Quiet(hs) == \A n \in hs : LET d == Decide27(n, hs, {}, {}) IN ~Replicates(d) /\ d.del = "none"
-NoTasks(hs) == \A n \in hs : ~Replicates(Decide27(n, hs, {}, {}))
-D\* a check "replicates" when it hands the replicator a task with at least one candidate node. (With overlapping
-\* rules the code as found keeps calling the replicator with an EMPTY candidate list: a holder remembered from
-\* an earlier rule does not lower the shortage of a later rule - a phantom shortage that copies nothing.)
-Replicates(d) == \E k \in 1..Len(d.tasks) : Len(d.tasks[k].nodes) > 0
-Quiet(hs) == \A n \in hs : LET d == Decide27(n, hs, {}, {}) IN ~Replicates(d) /\ d.del = "none"
-NoTasks(hs) == \A n \in hs : ~Replicates(Decide27(n, hs, {}, {}))
-e\* a check "replicates" when it hands the replicator a task with at least one candidate node. (With overlapping
-\* rules the code as found keeps calling the replicator with an EMPTY candidate list: a holder remembered from
-\* an earlier rule does not lower the shortage of a later rule - a phantom shortage that copies nothing.)
-Replicates(d) == \E k \in 1..Len(d.tasks) : Len(d.tasks[k].nodes) > 0
-Quiet(hs) == \A n \in hs : LET d == Decide27(n, hs, {}, {}) IN ~Replicates(d) /\ d.del = "none"
-NoTasks(hs) == \A n \in hs : ~Replicates(Decide27(n, hs, {}, {}))
-c\* a check "replicates" when it hands the replicator a task with at least one candidate node. (With overlapping
-\* rules the code as found keeps calling the replicator with an EMPTY candidate list: a holder remembered from
-\* an earlier rule does not lower the shortage of a later rule - a phantom shortage that copies nothing.)
-Replicates(d) == \E k \in 1..Len(d.tasks) : Len(d.tasks[k].nodes) > 0
-Quiet(hs) == \A n \in hs : LET d == Decide27(n, hs, {}, {}) IN ~Replicates(d) /\ d.del = "none"
-NoTasks(hs) == \A n \in hs : ~Replicates(Decide27(n, hs, {}, {}))
-i\* a check "replicates" when it hands the replicator a task with at least one candidate node. (With overlapping
-\* rules the code as found keeps calling the replicator with an EMPTY candidate list: a holder remembered from
-\* an earlier rule does not lower the shortage of a later rule - a phantom shortage that copies nothing.)
-Replicates(d) == \E k \in 1..Len(d.tasks) : Len(d.tasks[k].nodes) > 0
-Quiet(hs) == \A n \in hs : LET d == Decide27(n, hs, {}, {}) IN ~Replicates(d) /\ d.del = "none"
-NoTasks(hs) == \A n \in hs : ~Replicates(Decide27(n, hs, {}, {}))
-d\* a check "replicates" when it hands the replicator a task with at least one candidate node. (With overlapping
-\* rules the code as found keeps calling the replicator with an EMPTY candidate list: a holder remembered from
-\* an earlier rule does not lower the shortage of a later rule - a phantom shortage that copies nothing.)
-Replicates(d) == \E k \in 1..Len(d.tasks) : Len(d.tasks[k].nodes) > 0
-Quiet(hs) == \A n \in hs : LET d == Decide27(n, hs, {}, {}) IN ~Replicates(d) /\ d.del = "none"
-NoTasks(hs) == \A n \in hs : ~Replicates(Decide27(n, hs, {}, {}))
-e\* a check "replicates" when it hands the replicator a task with at least one candidate node. (With overlapping
-\* rules the code as found keeps calling the replicator with an EMPTY candidate list: a holder remembered from
-\* an earlier rule does not lower the shortage of a later rule - a phantom shortage that copies nothing.)
-Replicates(d) == \E k \in 1..Len(d.tasks) : Len(d.tasks[k].nodes) > 0
-Quiet(hs) == \A n \in hs : LET d == Decide27(n, hs, {}, {}) IN ~Replicates(d) /\ d.del = "none"
-NoTasks(hs) == \A n \in hs : ~Replicates(Decide27(n, hs, {}, {}))
-2\* a check "replicates" when it hands the replicator a task with at least one candidate node. (With overlapping
-\* rules the code as found keeps calling the replicator with an EMPTY candidate list: a holder remembered from
-\* an earlier rule does not lower the shortage of a later rule - a phantom shortage that copies nothing.)
-Replicates(d) == \E k \in 1..Len(d.tasks) : Len(d.tasks[k].nodes) > 0
-Quiet(hs) == \A n \in hs : LET d == Decide27(n, hs, {}, {}) IN ~Replicates(d) /\ d.del = "none"
-NoTasks(hs) == \A n \in hs : ~Replicates(Decide27(n, hs, {}, {}))
-7\* a check "replicates" when it hands the replicator a task with at least one candidate node. (With overlapping
-\* rules the code as found keeps calling the replicator with an EMPTY candidate list: a holder remembered from
-\* an earlier rule does not lower the shortage of a later rule - a phantom shortage that copies nothing.)
-Replicates(d) == \E k \in 1..Len(d.tasks) : Len(d.tasks[k].nodes) > 0
-Quiet(hs) == \A n \in hs : LET d == Decide27(n, hs, {}, {}) IN ~Replicates(d) /\ d.del = "none"
-NoTasks(hs) == \A n \in hs : ~Replicates(Decide27(n, hs, {}, {}))
-(\* a check "replicates" when it hands the replicator a task with at least one candidate node. (With overlapping
-\* rules the code as found keeps calling the replicator with an EMPTY candidate list: a holder remembered from
-\* an earlier rule does not lower the shortage of a later rule - a phantom shortage that copies nothing.)
-Replicates(d) == \E k \in 1..Len(d.tasks) : Len(d.tasks[k].nodes) > 0
-Quiet(hs) == \A n \in hs : LET d == Decide27(n, hs, {}, {}) IN ~Replicates(d) /\ d.del = "none"
-NoTasks(hs) == \A n \in hs : ~Replicates(Decide27(n, hs, {}, {}))
-n\* a check "replicates" when it hands the replicator a task with at least one candidate node. (With overlapping
-\* rules the code as found keeps calling the replicator with an EMPTY candidate list: a holder remembered from
-\* an earlier rule does not lower the shortage of a later rule - a phantom shortage that copies nothing.)
-Replicates(d) == \E k \in 1..Len(d.tasks) : Len(d.tasks[k].nodes) > 0
-Quiet(hs) == \A n \in hs : LET d == Decide27(n, hs, {}, {}) IN ~Replicates(d) /\ d.del = "none"
-NoTasks(hs) == \A n \in hs : ~Replicates(Decide27(n, hs, {}, {}))
-,\* a check "replicates" when it hands the replicator a task with at least one candidate node. (With overlapping
-\* rules the code as found keeps calling the replicator with an EMPTY candidate list: a holder remembered from
-\* an earlier rule does not lower the shortage of a later rule - a phantom shortage that copies nothing.)
-Replicates(d) == \E k \in 1..Len(d.tasks) : Len(d.tasks[k].nodes) > 0
-Quiet(hs) == \A n \in hs : LET d == Decide27(n, hs, {}, {}) IN ~Replicates(d) /\ d.del = "none"
-NoTasks(hs) == \A n \in hs : ~Replicates(Decide27(n, hs, {}, {}))
- \* a check "replicates" when it hands the replicator a task with at least one candidate node. (With overlapping
-\* rules the code as found keeps calling the replicator with an EMPTY candidate list: a holder remembered from
-\* an earlier rule does not lower the shortage of a later rule - a phantom shortage that copies nothing.)
-Replicates(d) == \E k \in 1..Len(d.tasks) : Len(d.tasks[k].nodes) > 0
-Quiet(hs) == \A n \in hs : LET d == Decide27(n, hs, {}, {}) IN ~Replicates(d) /\ d.del = "none"
-NoTasks(hs) == \A n \in hs : ~Replicates(Decide27(n, hs, {}, {}))
-h\* a check "replicates" when it hands the replicator a task with at least one candidate node. (With overlapping
-\* rules the code as found keeps calling the replicator with an EMPTY candidate list: a holder remembered from
-\* an earlier rule does not lower the shortage of a later rule - a phantom shortage that copies nothing.)
-Replicates(d) == \E k \in 1..Len(d.tasks) : Len(d.tasks[k].nodes) > 0
-Quiet(hs) == \A n \in hs : LET d == Decide27(n, hs, {}, {}) IN ~Replicates(d) /\ d.del = "none"
-NoTasks(hs) == \A n \in hs : ~Replicates(Decide27(n, hs, {}, {}))
-s\* a check "replicates" when it hands the replicator a task with at least one candidate node. (With overlapping
-\* rules the code as found keeps calling the replicator with an EMPTY candidate list: a holder remembered from
-\* an earlier rule does not lower the shortage of a later rule - a phantom shortage that copies nothing.)
-Replicates(d) == \E k \in 1..Len(d.tasks) : Len(d.tasks[k].nodes) > 0
-Quiet(hs) == \A n \in hs : LET d == Decide27(n, hs, {}, {}) IN ~Replicates(d) /\ d.del = "none"
-NoTasks(hs) == \A n \in hs : ~Replicates(Decide27(n, hs, {}, {}))
-,\* a check "replicates" when it hands the replicator a task with at least one candidate node. (With overlapping
-\* rules the code as found keeps calling the replicator with an EMPTY candidate list: a holder remembered from
-\* an earlier rule does not lower the shortage of a later rule - a phantom shortage that copies nothing.)
-Replicates(d) == \E k \in 1..Len(d.tasks) : Len(d.tasks[k].nodes) > 0
-Quiet(hs) == \A n \in hs : LET d == Decide27(n, hs, {}, {}) IN ~Replicates(d) /\ d.del = "none"
-NoTasks(hs) == \A n \in hs : ~Replicates(Decide27(n, hs, {}, {}))
- \* a check "replicates" when it hands the replicator a task with at least one candidate node. (With overlapping
-\* rules the code as found keeps calling the replicator with an EMPTY candidate list: a holder remembered from
-\* an earlier rule does not lower the shortage of a later rule - a phantom shortage that copies nothing.)
-Replicates(d) == \E k \in 1..Len(d.tasks) : Len(d.tasks[k].nodes) > 0
-Quiet(hs) == \A n \in hs : LET d == Decide27(n, hs, {}, {}) IN ~Replicates(d) /\ d.del = "none"
-NoTasks(hs) == \A n \in hs : ~Replicates(Decide27(n, hs, {}, {}))
-{\* a check "replicates" when it hands the replicator a task with at least one candidate node. (With overlapping
-\* rules the code as found keeps calling the replicator with an EMPTY candidate list: a holder remembered from
-\* an earlier rule does not lower the shortage of a later rule - a phantom shortage that copies nothing.)
-Replicates(d) == \E k \in 1..Len(d.tasks) : Len(d.tasks[k].nodes) > 0
-Quiet(hs) == \A n \in hs : LET d == Decide27(n, hs, {}, {}) IN ~Replicates(d) /\ d.del = "none"
-NoTasks(hs) == \A n \in hs : ~Replicates(Decide27(n, hs, {}, {}))
-}\* a check "replicates" when it hands the replicator a task with at least one candidate node. (With overlapping
-\* rules the code as found keeps calling the replicator with an EMPTY candidate list: a holder remembered from
-\* an earlier rule does not lower the shortage of a later rule - a phantom shortage that copies nothing.)
-Replicates(d) == \E k \in 1..Len(d.tasks) : Len(d.tasks[k].nodes) > 0
-Quiet(hs) == \A n \in hs : LET d == Decide27(n, hs, {}, {}) IN ~Replicates(d) /\ d.del = "none"
-NoTasks(hs) == \A n \in hs : ~Replicates(Decide27(n, hs, {}, {}))
-,\* a check "replicates" when it hands the replicator a task with at least one candidate node. (With overlapping
-\* rules the code as found keeps calling the replicator with an EMPTY candidate list: a holder remembered from
-\* an earlier rule does not lower the shortage of a later rule - a phantom shortage that copies nothing.)
-Replicates(d) == \E k \in 1..Len(d.tasks) : Len(d.tasks[k].nodes) > 0
-Quiet(hs) == \A n \in hs : LET d == Decide27(n, hs, {}, {}) IN ~Replicates(d) /\ d.del = "none"
-NoTasks(hs) == \A n \in hs : ~Replicates(Decide27(n, hs, {}, {}))
- \* a check "replicates" when it hands the replicator a task with at least one candidate node. (With overlapping
-\* rules the code as found keeps calling the replicator with an EMPTY candidate list: a holder remembered from
-\* an earlier rule does not lower the shortage of a later rule - a phantom shortage that copies nothing.)
-Replicates(d) == \E k \in 1..Len(d.tasks) : Len(d.tasks[k].nodes) > 0
-Quiet(hs) == \A n \in hs : LET d == Decide27(n, hs, {}, {}) IN ~Replicates(d) /\ d.del = "none"
-NoTasks(hs) == \A n \in hs : ~Replicates(Decide27(n, hs, {}, {}))
-{\* a check "replicates" when it hands the replicator a task with at least one candidate node. (With overlapping
-\* rules the code as found keeps calling the replicator with an EMPTY candidate list: a holder remembered from
-\* an earlier rule does not lower the shortage of a later rule - a phantom shortage that copies nothing.)
-Replicates(d) == \E k \in 1..Len(d.tasks) : Len(d.tasks[k].nodes) > 0
-Quiet(hs) == \A n \in hs : LET d == Decide27(n, hs, {}, {}) IN ~Replicates(d) /\ d.del = "none"
-NoTasks(hs) == \A n \in hs : ~Replicates(Decide27(n, hs, {}, {}))
-}\* a check "replicates" when it hands the replicator a task with at least one candidate node. (With overlapping
-\* rules the code as found keeps calling the replicator with an EMPTY candidate list: a holder remembered from
-\* an earlier rule does not lower the shortage of a later rule - a phantom shortage that copies nothing.)
-Replicates(d) == \E k \in 1..Len(d.tasks) : Len(d.tasks[k].nodes) > 0
-Quiet(hs) == \A n \in hs : LET d == Decide27(n, hs, {}, {}) IN ~Replicates(d) /\ d.del = "none"
-NoTasks(hs) == \A n \in hs : ~Replicates(Decide27(n, hs, {}, {}))
-)\* a check "replicates" when it hands the replicator a task with at least one candidate node. (With overlapping
-\* rules the code as found keeps calling the replicator with an EMPTY candidate list: a holder remembered from
-\* an earlier rule does not lower the shortage of a later rule - a phantom shortage that copies nothing.)
-Replicates(d) == \E k \in 1..Len(d.tasks) : Len(d.tasks[k].nodes) > 0
-Quiet(hs) == \A n \in hs : LET d == Decide27(n, hs, {}, {}) IN ~Replicates(d) /\ d.del = "none"
-NoTasks(hs) == \A n \in hs : ~Replicates(Decide27(n, hs, {}, {}))
-.\* a check "replicates" when it hands the replicator a task with at least one candidate node. (With overlapping
-\* rules the code as found keeps calling the replicator with an EMPTY candidate list: a holder remembered from
-\* an earlier rule does not lower the shortage of a later rule - a phantom shortage that copies nothing.)
-Replicates(d) == \E k \in 1..Len(d.tasks) : Len(d.tasks[k].nodes) > 0
-Quiet(hs) == \A n \in hs : LET d == Decide27(n, hs, {}, {}) IN ~Replicates(d) /\ d.del = "none"
-NoTasks(hs) == \A n \in hs : ~Replicates(Decide27(n, hs, {}, {}))
-t\* a check "replicates" when it hands the replicator a task with at least one candidate node. (With overlapping
-\* rules the code as found keeps calling the replicator with an EMPTY candidate list: a holder remembered from
-\* an earlier rule does not lower the shortage of a later rule - a phantom shortage that copies nothing.)
-Replicates(d) == \E k \in 1..Len(d.tasks) : Len(d.tasks[k].nodes) > 0
-Quiet(hs) == \A n \in hs : LET d == Decide27(n, hs, {}, {}) IN ~Replicates(d) /\ d.del = "none"
-NoTasks(hs) == \A n \in hs : ~Replicates(Decide27(n, hs, {}, {}))
-a\* a check "replicates" when it hands the replicator a task with at least one candidate node. (With overlapping
-\* rules the code as found keeps calling the replicator with an EMPTY candidate list: a holder remembered from
-\* an earlier rule does not lower the shortage of a later rule - a phantom shortage that copies nothing.)
-Replicates(d) == \E k \in 1..Len(d.tasks) : Len(d.tasks[k].nodes) > 0
-Quiet(hs) == \A n \in hs : LET d == Decide27(n, hs, {}, {}) IN ~Replicates(d) /\ d.del = "none"
-NoTasks(hs) == \A n \in hs : ~Replicates(Decide27(n, hs, {}, {}))
-s\* a check "replicates" when it hands the replicator a task with at least one candidate node. (With overlapping
-\* rules the code as found keeps calling the replicator with an EMPTY candidate list: a holder remembered from
-\* an earlier rule does not lower the shortage of a later rule - a phantom shortage that copies nothing.)
-Replicates(d) == \E k \in 1..Len(d.tasks) : Len(d.tasks[k].nodes) > 0
-Quiet(hs) == \A n \in hs : LET d == Decide27(n, hs, {}, {}) IN ~Replicates(d) /\ d.del = "none"
-NoTasks(hs) == \A n \in hs : ~Replicates(Decide27(n, hs, {}, {}))
-k\* a check "replicates" when it hands the replicator a task with at least one candidate node. (With overlapping
-\* rules the code as found keeps calling the replicator with an EMPTY candidate list: a holder remembered from
-\* an earlier rule does not lower the shortage of a later rule - a phantom shortage that copies nothing.)
-Replicates(d) == \E k \in 1..Len(d.tasks) : Len(d.tasks[k].nodes) > 0
-Quiet(hs) == \A n \in hs : LET d == Decide27(n, hs, {}, {}) IN ~Replicates(d) /\ d.del = "none"
-NoTasks(hs) == \A n \in hs : ~Replicates(Decide27(n, hs, {}, {}))
-s\* a check "replicates" when it hands the replicator a task with at least one candidate node. (With overlapping
-\* rules the code as found keeps calling the replicator with an EMPTY candidate list: a holder remembered from
-\* an earlier rule does not lower the shortage of a later rule - a phantom shortage that copies nothing.)
-Replicates(d) == \E k \in 1..Len(d.tasks) : Len(d.tasks[k].nodes) > 0
-Quiet(hs) == \A n \in hs : LET d == Decide27(n, hs, {}, {}) IN ~Replicates(d) /\ d.del = "none"
-NoTasks(hs) == \A n \in hs : ~Replicates(Decide27(n, hs, {}, {}))
- \* a check "replicates" when it hands the replicator a task with at least one candidate node. (With overlapping
-\* rules the code as found keeps calling the replicator with an EMPTY candidate list: a holder remembered from
-\* an earlier rule does not lower the shortage of a later rule - a phantom shortage that copies nothing.)
-Replicates(d) == \E k \in 1..Len(d.tasks) : Len(d.tasks[k].nodes) > 0
-Quiet(hs) == \A n \in hs : LET d == Decide27(n, hs, {}, {}) IN ~Replicates(d) /\ d.del = "none"
-NoTasks(hs) == \A n \in hs : ~Replicates(Decide27(n, hs, {}, {}))
-=\* a check "replicates" when it hands the replicator a task with at least one candidate node. (With overlapping
-\* rules the code as found keeps calling the replicator with an EMPTY candidate list: a holder remembered from
-\* an earlier rule does not lower the shortage of a later rule - a phantom shortage that copies nothing.)
-Replicates(d) == \E k \in 1..Len(d.tasks) : Len(d.tasks[k].nodes) > 0
-Quiet(hs) == \A n \in hs : LET d == Decide27(n, hs, {}, {}) IN ~Replicates(d) /\ d.del = "none"
-NoTasks(hs) == \A n \in hs : ~Replicates(Decide27(n, hs, {}, {}))
- \* a check "replicates" when it hands the replicator a task with at least one candidate node. (With overlapping
-\* rules the code as found keeps calling the replicator with an EMPTY candidate list: a holder remembered from
-\* an earlier rule does not lower the shortage of a later rule - a phantom shortage that copies nothing.)
-Replicates(d) == \E k \in 1..Len(d.tasks) : Len(d.tasks[k].nodes) > 0
-Quiet(hs) == \A n \in hs : LET d == Decide27(n, hs, {}, {}) IN ~Replicates(d) /\ d.del = "none"
-NoTasks(hs) == \A n \in hs : ~Replicates(Decide27(n, hs, {}, {}))
-<\* a check "replicates" when it hands the replicator a task with at least one candidate node. (With overlapping
-\* rules the code as found keeps calling the replicator with an EMPTY candidate list: a holder remembered from
-\* an earlier rule does not lower the shortage of a later rule - a phantom shortage that copies nothing.)
-Replicates(d) == \E k \in 1..Len(d.tasks) : Len(d.tasks[k].nodes) > 0
-Quiet(hs) == \A n \in hs : LET d == Decide27(n, hs, {}, {}) IN ~Replicates(d) /\ d.del = "none"
-NoTasks(hs) == \A n \in hs : ~Replicates(Decide27(n, hs, {}, {}))
-<\* a check "replicates" when it hands the replicator a task with at least one candidate node. (With overlapping
-\* rules the code as found keeps calling the replicator with an EMPTY candidate list: a holder remembered from
-\* an earlier rule does not lower the shortage of a later rule - a phantom shortage that copies nothing.)
-Replicates(d) == \E k \in 1..Len(d.tasks) : Len(d.tasks[k].nodes) > 0
-Quiet(hs) == \A n \in hs : LET d == Decide27(n, hs, {}, {}) IN ~Replicates(d) /\ d.del = "none"
-NoTasks(hs) == \A n \in hs : ~Replicates(Decide27(n, hs, {}, {}))
->\* a check "replicates" when it hands the replicator a task with at least one candidate node. (With overlapping
-\* rules the code as found keeps calling the replicator with an EMPTY candidate list: a holder remembered from
-\* an earlier rule does not lower the shortage of a later rule - a phantom shortage that copies nothing.)
-Replicates(d) == \E k \in 1..Len(d.tasks) : Len(d.tasks[k].nodes) > 0
-Quiet(hs) == \A n \in hs : LET d == Decide27(n, hs, {}, {}) IN ~Replicates(d) /\ d.del = "none"
-NoTasks(hs) == \A n \in hs : ~Replicates(Decide27(n, hs, {}, {}))
->\* a check "replicates" when it hands the replicator a task with at least one candidate node. (With overlapping
-\* rules the code as found keeps calling the replicator with an EMPTY candidate list: a holder remembered from
-\* an earlier rule does not lower the shortage of a later rule - a phantom shortage that copies nothing.)
-Replicates(d) == \E k \in 1..Len(d.tasks) : Len(d.tasks[k].nodes) > 0
-Quiet(hs) == \A n \in hs : LET d == Decide27(n, hs, {}, {}) IN ~Replicates(d) /\ d.del = "none"
-NoTasks(hs) == \A n \in hs : ~Replicates(Decide27(n, hs, {}, {}))
-
-\* a check "replicates" when it hands the replicator a task with at least one candidate node. (With overlapping
-\* rules the code as found keeps calling the replicator with an EMPTY candidate list: a holder remembered from
-\* an earlier rule does not lower the shortage of a later rule - a phantom shortage that copies nothing.)
-Replicates(d) == \E k \in 1..Len(d.tasks) : Len(d.tasks[k].nodes) > 0
-Quiet(hs) == \A n \in hs : LET d == Decide27(n, hs, {}, {}) IN ~Replicates(d) /\ d.del = "none"
-NoTasks(hs) == \A n \in hs : ~Replicates(Decide27(n, hs, {}, {}))
-C\* a check "replicates" when it hands the replicator a task with at least one candidate node. (With overlapping
-\* rules the code as found keeps calling the replicator with an EMPTY candidate list: a holder remembered from
-\* an earlier rule does not lower the shortage of a later rule - a phantom shortage that copies nothing.)
-Replicates(d) == \E k \in 1..Len(d.tasks) : Len(d.tasks[k].nodes) > 0
-Quiet(hs) == \A n \in hs : LET d == Decide27(n, hs, {}, {}) IN ~Replicates(d) /\ d.del = "none"
-NoTasks(hs) == \A n \in hs : ~Replicates(Decide27(n, hs, {}, {}))
-o\* a check "replicates" when it hands the replicator a task with at least one candidate node. (With overlapping
-\* rules the code as found keeps calling the replicator with an EMPTY candidate list: a holder remembered from
-\* an earlier rule does not lower the shortage of a later rule - a phantom shortage that copies nothing.)
-Replicates(d) == \E k \in 1..Len(d.tasks) : Len(d.tasks[k].nodes) > 0
-Quiet(hs) == \A n \in hs : LET d == Decide27(n, hs, {}, {}) IN ~Replicates(d) /\ d.del = "none"
-NoTasks(hs) == \A n \in hs : ~Replicates(Decide27(n, hs, {}, {}))
-n\* a check "replicates" when it hands the replicator a task with at least one candidate node. (With overlapping
-\* rules the code as found keeps calling the replicator with an EMPTY candidate list: a holder remembered from
-\* an earlier rule does not lower the shortage of a later rule - a phantom shortage that copies nothing.)
-Replicates(d) == \E k \in 1..Len(d.tasks) : Len(d.tasks[k].nodes) > 0
-Quiet(hs) == \A n \in hs : LET d == Decide27(n, hs, {}, {}) IN ~Replicates(d) /\ d.del = "none"
-NoTasks(hs) == \A n \in hs : ~Replicates(Decide27(n, hs, {}, {}))
-v\* a check "replicates" when it hands the replicator a task with at least one candidate node. (With overlapping
-\* rules the code as found keeps calling the replicator with an EMPTY candidate list: a holder remembered from
-\* an earlier rule does not lower the shortage of a later rule - a phantom shortage that copies nothing.)
-Replicates(d) == \E k \in 1..Len(d.tasks) : Len(d.tasks[k].nodes) > 0
-Quiet(hs) == \A n \in hs : LET d == Decide27(n, hs, {}, {}) IN ~Replicates(d) /\ d.del = "none"
-NoTasks(hs) == \A n \in hs : ~Replicates(Decide27(n, hs, {}, {}))
-e\* a check "replicates" when it hands the replicator a task with at least one candidate node. (With overlapping
-\* rules the code as found keeps calling the replicator with an EMPTY candidate list: a holder remembered from
-\* an earlier rule does not lower the shortage of a later rule - a phantom shortage that copies nothing.)
-Replicates(d) == \E k \in 1..Len(d.tasks) : Len(d.tasks[k].nodes) > 0
-Quiet(hs) == \A n \in hs : LET d == Decide27(n, hs, {}, {}) IN ~Replicates(d) /\ d.del = "none"
-NoTasks(hs) == \A n \in hs : ~Replicates(Decide27(n, hs, {}, {}))
-r\* a check "replicates" when it hands the replicator a task with at least one candidate node. (With overlapping
-\* rules the code as found keeps calling the replicator with an EMPTY candidate list: a holder remembered from
-\* an earlier rule does not lower the shortage of a later rule - a phantom shortage that copies nothing.)
-Replicates(d) == \E k \in 1..Len(d.tasks) : Len(d.tasks[k].nodes) > 0
-Quiet(hs) == \A n \in hs : LET d == Decide27(n, hs, {}, {}) IN ~Replicates(d) /\ d.del = "none"
-NoTasks(hs) == \A n \in hs : ~Replicates(Decide27(n, hs, {}, {}))
-g\* a check "replicates" when it hands the replicator a task with at least one candidate node. (With overlapping
-\* rules the code as found keeps calling the replicator with an EMPTY candidate list: a holder remembered from
-\* an earlier rule does not lower the shortage of a later rule - a phantom shortage that copies nothing.)
-Replicates(d) == \E k \in 1..Len(d.tasks) : Len(d.tasks[k].nodes) > 0
-Quiet(hs) == \A n \in hs : LET d == Decide27(n, hs, {}, {}) IN ~Replicates(d) /\ d.del = "none"
-NoTasks(hs) == \A n \in hs : ~Replicates(Decide27(n, hs, {}, {}))
-e\* a check "replicates" when it hands the replicator a task with at least one candidate node. (With overlapping
-\* rules the code as found keeps calling the replicator with an EMPTY candidate list: a holder remembered from
-\* an earlier rule does not lower the shortage of a later rule - a phantom shortage that copies nothing.)
-Replicates(d) == \E k \in 1..Len(d.tasks) : Len(d.tasks[k].nodes) > 0
-Quiet(hs) == \A n \in hs : LET d == Decide27(n, hs, {}, {}) IN ~Replicates(d) /\ d.del = "none"
-NoTasks(hs) == \A n \in hs : ~Replicates(Decide27(n, hs, {}, {}))
-d\* a check "replicates" when it hands the replicator a task with at least one candidate node. (With overlapping
-\* rules the code as found keeps calling the replicator with an EMPTY candidate list: a holder remembered from
-\* an earlier rule does not lower the shortage of a later rule - a phantom shortage that copies nothing.)
-Replicates(d) == \E k \in 1..Len(d.tasks) : Len(d.tasks[k].nodes) > 0
-Quiet(hs) == \A n \in hs : LET d == Decide27(n, hs, {}, {}) IN ~Replicates(d) /\ d.del = "none"
-NoTasks(hs) == \A n \in hs : ~Replicates(Decide27(n, hs, {}, {}))
- \* a check "replicates" when it hands the replicator a task with at least one candidate node. (With overlapping
-\* rules the code as found keeps calling the replicator with an EMPTY candidate list: a holder remembered from
-\* an earlier rule does not lower the shortage of a later rule - a phantom shortage that copies nothing.)
-Replicates(d) == \E k \in 1..Len(d.tasks) : Len(d.tasks[k].nodes) > 0
-Quiet(hs) == \A n \in hs : LET d == Decide27(n, hs, {}, {}) IN ~Replicates(d) /\ d.del = "none"
-NoTasks(hs) == \A n \in hs : ~Replicates(Decide27(n, hs, {}, {}))
-=\* a check "replicates" when it hands the replicator a task with at least one candidate node. (With overlapping
-\* rules the code as found keeps calling the replicator with an EMPTY candidate list: a holder remembered from
-\* an earlier rule does not lower the shortage of a later rule - a phantom shortage that copies nothing.)
-Replicates(d) == \E k \in 1..Len(d.tasks) : Len(d.tasks[k].nodes) > 0
-Quiet(hs) == \A n \in hs : LET d == Decide27(n, hs, {}, {}) IN ~Replicates(d) /\ d.del = "none"
-NoTasks(hs) == \A n \in hs : ~Replicates(Decide27(n, hs, {}, {}))
-=\* a check "replicates" when it hands the replicator a task with at least one candidate node. (With overlapping
-\* rules the code as found keeps calling the replicator with an EMPTY candidate list: a holder remembered from
-\* an earlier rule does not lower the shortage of a later rule - a phantom shortage that copies nothing.)
-Replicates(d) == \E k \in 1..Len(d.tasks) : Len(d.tasks[k].nodes) > 0
-Quiet(hs) == \A n \in hs : LET d == Decide27(n, hs, {}, {}) IN ~Replicates(d) /\ d.del = "none"
-NoTasks(hs) == \A n \in hs : ~Replicates(Decide27(n, hs, {}, {}))
- \* a check "replicates" when it hands the replicator a task with at least one candidate node. (With overlapping
-\* rules the code as found keeps calling the replicator with an EMPTY candidate list: a holder remembered from
-\* an earlier rule does not lower the shortage of a later rule - a phantom shortage that copies nothing.)
-Replicates(d) == \E k \in 1..Len(d.tasks) : Len(d.tasks[k].nodes) > 0
-Quiet(hs) == \A n \in hs : LET d == Decide27(n, hs, {}, {}) IN ~Replicates(d) /\ d.del = "none"
-NoTasks(hs) == \A n \in hs : ~Replicates(Decide27(n, hs, {}, {}))
-P\* a check "replicates" when it hands the replicator a task with at least one candidate node. (With overlapping
-\* rules the code as found keeps calling the replicator with an EMPTY candidate list: a holder remembered from
-\* an earlier rule does not lower the shortage of a later rule - a phantom shortage that copies nothing.)
-Replicates(d) == \E k \in 1..Len(d.tasks) : Len(d.tasks[k].nodes) > 0
-Quiet(hs) == \A n \in hs : LET d == Decide27(n, hs, {}, {}) IN ~Replicates(d) /\ d.del = "none"
-NoTasks(hs) == \A n \in hs : ~Replicates(Decide27(n, hs, {}, {}))
-r\* a check "replicates" when it hands the replicator a task with at least one candidate node. (With overlapping
-\* rules the code as found keeps calling the replicator with an EMPTY candidate list: a holder remembered from
-\* an earlier rule does not lower the shortage of a later rule - a phantom shortage that copies nothing.)
-Replicates(d) == \E k \in 1..Len(d.tasks) : Len(d.tasks[k].nodes) > 0
-Quiet(hs) == \A n \in hs : LET d == Decide27(n, hs, {}, {}) IN ~Replicates(d) /\ d.del = "none"
-NoTasks(hs) == \A n \in hs : ~Replicates(Decide27(n, hs, {}, {}))
-i\* a check "replicates" when it hands the replicator a task with at least one candidate node. (With overlapping
-\* rules the code as found keeps calling the replicator with an EMPTY candidate list: a holder remembered from
-\* an earlier rule does not lower the shortage of a later rule - a phantom shortage that copies nothing.)
-Replicates(d) == \E k \in 1..Len(d.tasks) : Len(d.tasks[k].nodes) > 0
-Quiet(hs) == \A n \in hs : LET d == Decide27(n, hs, {}, {}) IN ~Replicates(d) /\ d.del = "none"
-NoTasks(hs) == \A n \in hs : ~Replicates(Decide27(n, hs, {}, {}))
-m\* a check "replicates" when it hands the replicator a task with at least one candidate node. (With overlapping
-\* rules the code as found keeps calling the replicator with an EMPTY candidate list: a holder remembered from
-\* an earlier rule does not lower the shortage of a later rule - a phantom shortage that copies nothing.)
-Replicates(d) == \E k \in 1..Len(d.tasks) : Len(d.tasks[k].nodes) > 0
-Quiet(hs) == \A n \in hs : LET d == Decide27(n, hs, {}, {}) IN ~Replicates(d) /\ d.del = "none"
-NoTasks(hs) == \A n \in hs : ~Replicates(Decide27(n, hs, {}, {}))
-a\* a check "replicates" when it hands the replicator a task with at least one candidate node. (With overlapping
-\* rules the code as found keeps calling the replicator with an EMPTY candidate list: a holder remembered from
-\* an earlier rule does not lower the shortage of a later rule - a phantom shortage that copies nothing.)
-Replicates(d) == \E k \in 1..Len(d.tasks) : Len(d.tasks[k].nodes) > 0
-Quiet(hs) == \A n \in hs : LET d == Decide27(n, hs, {}, {}) IN ~Replicates(d) /\ d.del = "none"
-NoTasks(hs) == \A n \in hs : ~Replicates(Decide27(n, hs, {}, {}))
-r\* a check "replicates" when it hands the replicator a task with at least one candidate node. (With overlapping
-\* rules the code as found keeps calling the replicator with an EMPTY candidate list: a holder remembered from
-\* an earlier rule does not lower the shortage of a later rule - a phantom shortage that copies nothing.)
-Replicates(d) == \E k \in 1..Len(d.tasks) : Len(d.tasks[k].nodes) > 0
-Quiet(hs) == \A n \in hs : LET d == Decide27(n, hs, {}, {}) IN ~Replicates(d) /\ d.del = "none"
-NoTasks(hs) == \A n \in hs : ~Replicates(Decide27(n, hs, {}, {}))
-i\* a check "replicates" when it hands the replicator a task with at least one candidate node. (With overlapping
-\* rules the code as found keeps calling the replicator with an EMPTY candidate list: a holder remembered from
-\* an earlier rule does not lower the shortage of a later rule - a phantom shortage that copies nothing.)
-Replicates(d) == \E k \in 1..Len(d.tasks) : Len(d.tasks[k].nodes) > 0
-Quiet(hs) == \A n \in hs : LET d == Decide27(n, hs, {}, {}) IN ~Replicates(d) /\ d.del = "none"
-NoTasks(hs) == \A n \in hs : ~Replicates(Decide27(n, hs, {}, {}))
-e\* a check "replicates" when it hands the replicator a task with at least one candidate node. (With overlapping
-\* rules the code as found keeps calling the replicator with an EMPTY candidate list: a holder remembered from
-\* an earlier rule does not lower the shortage of a later rule - a phantom shortage that copies nothing.)
-Replicates(d) == \E k \in 1..Len(d.tasks) : Len(d.tasks[k].nodes) > 0
-Quiet(hs) == \A n \in hs : LET d == Decide27(n, hs, {}, {}) IN ~Replicates(d) /\ d.del = "none"
-NoTasks(hs) == \A n \in hs : ~Replicates(Decide27(n, hs, {}, {}))
-s\* a check "replicates" when it hands the replicator a task with at least one candidate node. (With overlapping
-\* rules the code as found keeps calling the replicator with an EMPTY candidate list: a holder remembered from
-\* an earlier rule does not lower the shortage of a later rule - a phantom shortage that copies nothing.)
-Replicates(d) == \E k \in 1..Len(d.tasks) : Len(d.tasks[k].nodes) > 0
-Quiet(hs) == \A n \in hs : LET d == Decide27(n, hs, {}, {}) IN ~Replicates(d) /\ d.del = "none"
-NoTasks(hs) == \A n \in hs : ~Replicates(Decide27(n, hs, {}, {}))
- \* a check "replicates" when it hands the replicator a task with at least one candidate node. (With overlapping
-\* rules the code as found keeps calling the replicator with an EMPTY candidate list: a holder remembered from
-\* an earlier rule does not lower the shortage of a later rule - a phantom shortage that copies nothing.)
-Replicates(d) == \E k \in 1..Len(d.tasks) : Len(d.tasks[k].nodes) > 0
-Quiet(hs) == \A n \in hs : LET d == Decide27(n, hs, {}, {}) IN ~Replicates(d) /\ d.del = "none"
-NoTasks(hs) == \A n \in hs : ~Replicates(Decide27(n, hs, {}, {}))
-\\* a check "replicates" when it hands the replicator a task with at least one candidate node. (With overlapping
-\* rules the code as found keeps calling the replicator with an EMPTY candidate list: a holder remembered from
-\* an earlier rule does not lower the shortage of a later rule - a phantom shortage that copies nothing.)
-Replicates(d) == \E k \in 1..Len(d.tasks) : Len(d.tasks[k].nodes) > 0
-Quiet(hs) == \A n \in hs : LET d == Decide27(n, hs, {}, {}) IN ~Replicates(d) /\ d.del = "none"
-NoTasks(hs) == \A n \in hs : ~Replicates(Decide27(n, hs, {}, {}))
-s\* a check "replicates" when it hands the replicator a task with at least one candidate node. (With overlapping
-\* rules the code as found keeps calling the replicator with an EMPTY candidate list: a holder remembered from
-\* an earlier rule does not lower the shortage of a later rule - a phantom shortage that copies nothing.)
-Replicates(d) == \E k \in 1..Len(d.tasks) : Len(d.tasks[k].nodes) > 0
-Quiet(hs) == \A n \in hs : LET d == Decide27(n, hs, {}, {}) IN ~Replicates(d) /\ d.del = "none"
-NoTasks(hs) == \A n \in hs : ~Replicates(Decide27(n, hs, {}, {}))
-u\* a check "replicates" when it hands the replicator a task with at least one candidate node. (With overlapping
-\* rules the code as found keeps calling the replicator with an EMPTY candidate list: a holder remembered from
-\* an earlier rule does not lower the shortage of a later rule - a phantom shortage that copies nothing.)
-Replicates(d) == \E k \in 1..Len(d.tasks) : Len(d.tasks[k].nodes) > 0
-Quiet(hs) == \A n \in hs : LET d == Decide27(n, hs, {}, {}) IN ~Replicates(d) /\ d.del = "none"
-NoTasks(hs) == \A n \in hs : ~Replicates(Decide27(n, hs, {}, {}))
-b\* a check "replicates" when it hands the replicator a task with at least one candidate node. (With overlapping
-\* rules the code as found keeps calling the replicator with an EMPTY candidate list: a holder remembered from
-\* an earlier rule does not lower the shortage of a later rule - a phantom shortage that copies nothing.)
-Replicates(d) == \E k \in 1..Len(d.tasks) : Len(d.tasks[k].nodes) > 0
-Quiet(hs) == \A n \in hs : LET d == Decide27(n, hs, {}, {}) IN ~Replicates(d) /\ d.del = "none"
-NoTasks(hs) == \A n \in hs : ~Replicates(Decide27(n, hs, {}, {}))
-s\* a check "replicates" when it hands the replicator a task with at least one candidate node. (With overlapping
-\* rules the code as found keeps calling the replicator with an EMPTY candidate list: a holder remembered from
-\* an earlier rule does not lower the shortage of a later rule - a phantom shortage that copies nothing.)
-Replicates(d) == \E k \in 1..Len(d.tasks) : Len(d.tasks[k].nodes) > 0
-Quiet(hs) == \A n \in hs : LET d == Decide27(n, hs, {}, {}) IN ~Replicates(d) /\ d.del = "none"
-NoTasks(hs) == \A n \in hs : ~Replicates(Decide27(n, hs, {}, {}))
-e\* a check "replicates" when it hands the replicator a task with at least one candidate node. (With overlapping
-\* rules the code as found keeps calling the replicator with an EMPTY candidate list: a holder remembered from
-\* an earlier rule does not lower the shortage of a later rule - a phantom shortage that copies nothing.)
-Replicates(d) == \E k \in 1..Len(d.tasks) : Len(d.tasks[k].nodes) > 0
-Quiet(hs) == \A n \in hs : LET d == Decide27(n, hs, {}, {}) IN ~Replicates(d) /\ d.del = "none"
-NoTasks(hs) == \A n \in hs : ~Replicates(Decide27(n, hs, {}, {}))
-t\* a check "replicates" when it hands the replicator a task with at least one candidate node. (With overlapping
-\* rules the code as found keeps calling the replicator with an EMPTY candidate list: a holder remembered from
-\* an earlier rule does not lower the shortage of a later rule - a phantom shortage that copies nothing.)
-Replicates(d) == \E k \in 1..Len(d.tasks) : Len(d.tasks[k].nodes) > 0
-Quiet(hs) == \A n \in hs : LET d == Decide27(n, hs, {}, {}) IN ~Replicates(d) /\ d.del = "none"
-NoTasks(hs) == \A n \in hs : ~Replicates(Decide27(n, hs, {}, {}))
-e\* a check "replicates" when it hands the replicator a task with at least one candidate node. (With overlapping
-\* rules the code as found keeps calling the replicator with an EMPTY candidate list: a holder remembered from
-\* an earlier rule does not lower the shortage of a later rule - a phantom shortage that copies nothing.)
-Replicates(d) == \E k \in 1..Len(d.tasks) : Len(d.tasks[k].nodes) > 0
-Quiet(hs) == \A n \in hs : LET d == Decide27(n, hs, {}, {}) IN ~Replicates(d) /\ d.del = "none"
-NoTasks(hs) == \A n \in hs : ~Replicates(Decide27(n, hs, {}, {}))
-q\* a check "replicates" when it hands the replicator a task with at least one candidate node. (With overlapping
-\* rules the code as found keeps calling the replicator with an EMPTY candidate list: a holder remembered from
-\* an earlier rule does not lower the shortage of a later rule - a phantom shortage that copies nothing.)
-Replicates(d) == \E k \in 1..Len(d.tasks) : Len(d.tasks[k].nodes) > 0
-Quiet(hs) == \A n \in hs : LET d == Decide27(n, hs, {}, {}) IN ~Replicates(d) /\ d.del = "none"
-NoTasks(hs) == \A n \in hs : ~Replicates(Decide27(n, hs, {}, {}))
- \* a check "replicates" when it hands the replicator a task with at least one candidate node. (With overlapping
-\* rules the code as found keeps calling the replicator with an EMPTY candidate list: a holder remembered from
-\* an earlier rule does not lower the shortage of a later rule - a phantom shortage that copies nothing.)
-Replicates(d) == \E k \in 1..Len(d.tasks) : Len(d.tasks[k].nodes) > 0
-Quiet(hs) == \A n \in hs : LET d == Decide27(n, hs, {}, {}) IN ~Replicates(d) /\ d.del = "none"
-NoTasks(hs) == \A n \in hs : ~Replicates(Decide27(n, hs, {}, {}))
-h\* a check "replicates" when it hands the replicator a task with at least one candidate node. (With overlapping
-\* rules the code as found keeps calling the replicator with an EMPTY candidate list: a holder remembered from
-\* an earlier rule does not lower the shortage of a later rule - a phantom shortage that copies nothing.)
-Replicates(d) == \E k \in 1..Len(d.tasks) : Len(d.tasks[k].nodes) > 0
-Quiet(hs) == \A n \in hs : LET d == Decide27(n, hs, {}, {}) IN ~Replicates(d) /\ d.del = "none"
-NoTasks(hs) == \A n \in hs : ~Replicates(Decide27(n, hs, {}, {}))
-o\* a check "replicates" when it hands the replicator a task with at least one candidate node. (With overlapping
-\* rules the code as found keeps calling the replicator with an EMPTY candidate list: a holder remembered from
-\* an earlier rule does not lower the shortage of a later rule - a phantom shortage that copies nothing.)
-Replicates(d) == \E k \in 1..Len(d.tasks) : Len(d.tasks[k].nodes) > 0
-Quiet(hs) == \A n \in hs : LET d == Decide27(n, hs, {}, {}) IN ~Replicates(d) /\ d.del = "none"
-NoTasks(hs) == \A n \in hs : ~Replicates(Decide27(n, hs, {}, {}))
-l\* a check "replicates" when it hands the replicator a task with at least one candidate node. (With overlapping
-\* rules the code as found keeps calling the replicator with an EMPTY candidate list: a holder remembered from
-\* an earlier rule does not lower the shortage of a later rule - a phantom shortage that copies nothing.)
-Replicates(d) == \E k \in 1..Len(d.tasks) : Len(d.tasks[k].nodes) > 0
-Quiet(hs) == \A n \in hs : LET d == Decide27(n, hs, {}, {}) IN ~Replicates(d) /\ d.del = "none"
-NoTasks(hs) == \A n \in hs : ~Replicates(Decide27(n, hs, {}, {}))
-d\* a check "replicates" when it hands the replicator a task with at least one candidate node. (With overlapping
-\* rules the code as found keeps calling the replicator with an EMPTY candidate list: a holder remembered from
-\* an earlier rule does not lower the shortage of a later rule - a phantom shortage that copies nothing.)
-Replicates(d) == \E k \in 1..Len(d.tasks) : Len(d.tasks[k].nodes) > 0
-Quiet(hs) == \A n \in hs : LET d == Decide27(n, hs, {}, {}) IN ~Replicates(d) /\ d.del = "none"
-NoTasks(hs) == \A n \in hs : ~Replicates(Decide27(n, hs, {}, {}))
-e\* a check "replicates" when it hands the replicator a task with at least one candidate node. (With overlapping
-\* rules the code as found keeps calling the replicator with an EMPTY candidate list: a holder remembered from
-\* an earlier rule does not lower the shortage of a later rule - a phantom shortage that copies nothing.)
-Replicates(d) == \E k \in 1..Len(d.tasks) : Len(d.tasks[k].nodes) > 0
-Quiet(hs) == \A n \in hs : LET d == Decide27(n, hs, {}, {}) IN ~Replicates(d) /\ d.del = "none"
-NoTasks(hs) == \A n \in hs : ~Replicates(Decide27(n, hs, {}, {}))
-r\* a check "replicates" when it hands the replicator a task with at least one candidate node. (With overlapping
-\* rules the code as found keeps calling the replicator with an EMPTY candidate list: a holder remembered from
-\* an earlier rule does not lower the shortage of a later rule - a phantom shortage that copies nothing.)
-Replicates(d) == \E k \in 1..Len(d.tasks) : Len(d.tasks[k].nodes) > 0
-Quiet(hs) == \A n \in hs : LET d == Decide27(n, hs, {}, {}) IN ~Replicates(d) /\ d.del = "none"
-NoTasks(hs) == \A n \in hs : ~Replicates(Decide27(n, hs, {}, {}))
-s\* a check "replicates" when it hands the replicator a task with at least one candidate node. (With overlapping
-\* rules the code as found keeps calling the replicator with an EMPTY candidate list: a holder remembered from
-\* an earlier rule does not lower the shortage of a later rule - a phantom shortage that copies nothing.)
-Replicates(d) == \E k \in 1..Len(d.tasks) : Len(d.tasks[k].nodes) > 0
-Quiet(hs) == \A n \in hs : LET d == Decide27(n, hs, {}, {}) IN ~Replicates(d) /\ d.del = "none"
-NoTasks(hs) == \A n \in hs : ~Replicates(Decide27(n, hs, {}, {}))
- \* a check "replicates" when it hands the replicator a task with at least one candidate node. (With overlapping
-\* rules the code as found keeps calling the replicator with an EMPTY candidate list: a holder remembered from
-\* an earlier rule does not lower the shortage of a later rule - a phantom shortage that copies nothing.)
-Replicates(d) == \E k \in 1..Len(d.tasks) : Len(d.tasks[k].nodes) > 0
-Quiet(hs) == \A n \in hs : LET d == Decide27(n, hs, {}, {}) IN ~Replicates(d) /\ d.del = "none"
-NoTasks(hs) == \A n \in hs : ~Replicates(Decide27(n, hs, {}, {}))
-/\* a check "replicates" when it hands the replicator a task with at least one candidate node. (With overlapping
-\* rules the code as found keeps calling the replicator with an EMPTY candidate list: a holder remembered from
-\* an earlier rule does not lower the shortage of a later rule - a phantom shortage that copies nothing.)
-Replicates(d) == \E k \in 1..Len(d.tasks) : Len(d.tasks[k].nodes) > 0
-Quiet(hs) == \A n \in hs : LET d == Decide27(n, hs, {}, {}) IN ~Replicates(d) /\ d.del = "none"
-NoTasks(hs) == \A n \in hs : ~Replicates(Decide27(n, hs, {}, {}))
-\\* a check "replicates" when it hands the replicator a task with at least one candidate node. (With overlapping
-\* rules the code as found keeps calling the replicator with an EMPTY candidate list: a holder remembered from
-\* an earlier rule does not lower the shortage of a later rule - a phantom shortage that copies nothing.)
-Replicates(d) == \E k \in 1..Len(d.tasks) : Len(d.tasks[k].nodes) > 0
-Quiet(hs) == \A n \in hs : LET d == Decide27(n, hs, {}, {}) IN ~Replicates(d) /\ d.del = "none"
-NoTasks(hs) == \A n \in hs : ~Replicates(Decide27(n, hs, {}, {}))
- \* a check "replicates" when it hands the replicator a task with at least one candidate node. (With overlapping
-\* rules the code as found keeps calling the replicator with an EMPTY candidate list: a holder remembered from
-\* an earlier rule does not lower the shortage of a later rule - a phantom shortage that copies nothing.)
-Replicates(d) == \E k \in 1..Len(d.tasks) : Len(d.tasks[k].nodes) > 0
-Quiet(hs) == \A n \in hs : LET d == Decide27(n, hs, {}, {}) IN ~Replicates(d) /\ d.del = "none"
-NoTasks(hs) == \A n \in hs : ~Replicates(Decide27(n, hs, {}, {}))
-N\* a check "replicates" when it hands the replicator a task with at least one candidate node. (With overlapping
-\* rules the code as found keeps calling the replicator with an EMPTY candidate list: a holder remembered from
-\* an earlier rule does not lower the shortage of a later rule - a phantom shortage that copies nothing.)
-Replicates(d) == \E k \in 1..Len(d.tasks) : Len(d.tasks[k].nodes) > 0
-Quiet(hs) == \A n \in hs : LET d == Decide27(n, hs, {}, {}) IN ~Replicates(d) /\ d.del = "none"
-NoTasks(hs) == \A n \in hs : ~Replicates(Decide27(n, hs, {}, {}))
-o\* a check "replicates" when it hands the replicator a task with at least one candidate node. (With overlapping
-\* rules the code as found keeps calling the replicator with an EMPTY candidate list: a holder remembered from
-\* an earlier rule does not lower the shortage of a later rule - a phantom shortage that copies nothing.)
-Replicates(d) == \E k \in 1..Len(d.tasks) : Len(d.tasks[k].nodes) > 0
-Quiet(hs) == \A n \in hs : LET d == Decide27(n, hs, {}, {}) IN ~Replicates(d) /\ d.del = "none"
-NoTasks(hs) == \A n \in hs : ~Replicates(Decide27(n, hs, {}, {}))
-T\* a check "replicates" when it hands the replicator a task with at least one candidate node. (With overlapping
-\* rules the code as found keeps calling the replicator with an EMPTY candidate list: a holder remembered from
-\* an earlier rule does not lower the shortage of a later rule - a phantom shortage that copies nothing.)
-Replicates(d) == \E k \in 1..Len(d.tasks) : Len(d.tasks[k].nodes) > 0
-Quiet(hs) == \A n \in hs : LET d == Decide27(n, hs, {}, {}) IN ~Replicates(d) /\ d.del = "none"
-NoTasks(hs) == \A n \in hs : ~Replicates(Decide27(n, hs, {}, {}))
-a\* a check "replicates" when it hands the replicator a task with at least one candidate node. (With overlapping
-\* rules the code as found keeps calling the replicator with an EMPTY candidate list: a holder remembered from
-\* an earlier rule does not lower the shortage of a later rule - a phantom shortage that copies nothing.)
-Replicates(d) == \E k \in 1..Len(d.tasks) : Len(d.tasks[k].nodes) > 0
-Quiet(hs) == \A n \in hs : LET d == Decide27(n, hs, {}, {}) IN ~Replicates(d) /\ d.del = "none"
-NoTasks(hs) == \A n \in hs : ~Replicates(Decide27(n, hs, {}, {}))
-s\* a check "replicates" when it hands the replicator a task with at least one candidate node. (With overlapping
-\* rules the code as found keeps calling the replicator with an EMPTY candidate list: a holder remembered from
-\* an earlier rule does not lower the shortage of a later rule - a phantom shortage that copies nothing.)
-Replicates(d) == \E k \in 1..Len(d.tasks) : Len(d.tasks[k].nodes) > 0
-Quiet(hs) == \A n \in hs : LET d == Decide27(n, hs, {}, {}) IN ~Replicates(d) /\ d.del = "none"
-NoTasks(hs) == \A n \in hs : ~Replicates(Decide27(n, hs, {}, {}))
-k\* a check "replicates" when it hands the replicator a task with at least one candidate node. (With overlapping
-\* rules the code as found keeps calling the replicator with an EMPTY candidate list: a holder remembered from
-\* an earlier rule does not lower the shortage of a later rule - a phantom shortage that copies nothing.)
-Replicates(d) == \E k \in 1..Len(d.tasks) : Len(d.tasks[k].nodes) > 0
-Quiet(hs) == \A n \in hs : LET d == Decide27(n, hs, {}, {}) IN ~Replicates(d) /\ d.del = "none"
-NoTasks(hs) == \A n \in hs : ~Replicates(Decide27(n, hs, {}, {}))
-s\* a check "replicates" when it hands the replicator a task with at least one candidate node. (With overlapping
-\* rules the code as found keeps calling the replicator with an EMPTY candidate list: a holder remembered from
-\* an earlier rule does not lower the shortage of a later rule - a phantom shortage that copies nothing.)
-Replicates(d) == \E k \in 1..Len(d.tasks) : Len(d.tasks[k].nodes) > 0
-Quiet(hs) == \A n \in hs : LET d == Decide27(n, hs, {}, {}) IN ~Replicates(d) /\ d.del = "none"
-NoTasks(hs) == \A n \in hs : ~Replicates(Decide27(n, hs, {}, {}))
-(\* a check "replicates" when it hands the replicator a task with at least one candidate node. (With overlapping
-\* rules the code as found keeps calling the replicator with an EMPTY candidate list: a holder remembered from
-\* an earlier rule does not lower the shortage of a later rule - a phantom shortage that copies nothing.)
-Replicates(d) == \E k \in 1..Len(d.tasks) : Len(d.tasks[k].nodes) > 0
-Quiet(hs) == \A n \in hs : LET d == Decide27(n, hs, {}, {}) IN ~Replicates(d) /\ d.del = "none"
-NoTasks(hs) == \A n \in hs : ~Replicates(Decide27(n, hs, {}, {}))
-h\* a check "replicates" when it hands the replicator a task with at least one candidate node. (With overlapping
-\* rules the code as found keeps calling the replicator with an EMPTY candidate list: a holder remembered from
-\* an earlier rule does not lower the shortage of a later rule - a phantom shortage that copies nothing.)
-Replicates(d) == \E k \in 1..Len(d.tasks) : Len(d.tasks[k].nodes) > 0
-Quiet(hs) == \A n \in hs : LET d == Decide27(n, hs, {}, {}) IN ~Replicates(d) /\ d.del = "none"
-NoTasks(hs) == \A n \in hs : ~Replicates(Decide27(n, hs, {}, {}))
-o\* a check "replicates" when it hands the replicator a task with at least one candidate node. (With overlapping
-\* rules the code as found keeps calling the replicator with an EMPTY candidate list: a holder remembered from
-\* an earlier rule does not lower the shortage of a later rule - a phantom shortage that copies nothing.)
-Replicates(d) == \E k \in 1..Len(d.tasks) : Len(d.tasks[k].nodes) > 0
-Quiet(hs) == \A n \in hs : LET d == Decide27(n, hs, {}, {}) IN ~Replicates(d) /\ d.del = "none"
-NoTasks(hs) == \A n \in hs : ~Replicates(Decide27(n, hs, {}, {}))
-l\* a check "replicates" when it hands the replicator a task with at least one candidate node. (With overlapping
-\* rules the code as found keeps calling the replicator with an EMPTY candidate list: a holder remembered from
-\* an earlier rule does not lower the shortage of a later rule - a phantom shortage that copies nothing.)
-Replicates(d) == \E k \in 1..Len(d.tasks) : Len(d.tasks[k].nodes) > 0
-Quiet(hs) == \A n \in hs : LET d == Decide27(n, hs, {}, {}) IN ~Replicates(d) /\ d.del = "none"
-NoTasks(hs) == \A n \in hs : ~Replicates(Decide27(n, hs, {}, {}))
-d\* a check "replicates" when it hands the replicator a task with at least one candidate node. (With overlapping
-\* rules the code as found keeps calling the replicator with an EMPTY candidate list: a holder remembered from
-\* an earlier rule does not lower the shortage of a later rule - a phantom shortage that copies nothing.)
-Replicates(d) == \E k \in 1..Len(d.tasks) : Len(d.tasks[k].nodes) > 0
-Quiet(hs) == \A n \in hs : LET d == Decide27(n, hs, {}, {}) IN ~Replicates(d) /\ d.del = "none"
-NoTasks(hs) == \A n \in hs : ~Replicates(Decide27(n, hs, {}, {}))
-e\* a check "replicates" when it hands the replicator a task with at least one candidate node. (With overlapping
-\* rules the code as found keeps calling the replicator with an EMPTY candidate list: a holder remembered from
-\* an earlier rule does not lower the shortage of a later rule - a phantom shortage that copies nothing.)
-Replicates(d) == \E k \in 1..Len(d.tasks) : Len(d.tasks[k].nodes) > 0
-Quiet(hs) == \A n \in hs : LET d == Decide27(n, hs, {}, {}) IN ~Replicates(d) /\ d.del = "none"
-NoTasks(hs) == \A n \in hs : ~Replicates(Decide27(n, hs, {}, {}))
-r\* a check "replicates" when it hands the replicator a task with at least one candidate node. (With overlapping
-\* rules the code as found keeps calling the replicator with an EMPTY candidate list: a holder remembered from
-\* an earlier rule does not lower the shortage of a later rule - a phantom shortage that copies nothing.)
-Replicates(d) == \E k \in 1..Len(d.tasks) : Len(d.tasks[k].nodes) > 0
-Quiet(hs) == \A n \in hs : LET d == Decide27(n, hs, {}, {}) IN ~Replicates(d) /\ d.del = "none"
-NoTasks(hs) == \A n \in hs : ~Replicates(Decide27(n, hs, {}, {}))
-s\* a check "replicates" when it hands the replicator a task with at least one candidate node. (With overlapping
-\* rules the code as found keeps calling the replicator with an EMPTY candidate list: a holder remembered from
-\* an earlier rule does not lower the shortage of a later rule - a phantom shortage that copies nothing.)
-Replicates(d) == \E k \in 1..Len(d.tasks) : Len(d.tasks[k].nodes) > 0
-Quiet(hs) == \A n \in hs : LET d == Decide27(n, hs, {}, {}) IN ~Replicates(d) /\ d.del = "none"
-NoTasks(hs) == \A n \in hs : ~Replicates(Decide27(n, hs, {}, {}))
-)\* a check "replicates" when it hands the replicator a task with at least one candidate node. (With overlapping
-\* rules the code as found keeps calling the replicator with an EMPTY candidate list: a holder remembered from
-\* an earlier rule does not lower the shortage of a later rule - a phantom shortage that copies nothing.)
-Replicates(d) == \E k \in 1..Len(d.tasks) : Len(d.tasks[k].nodes) > 0
-Quiet(hs) == \A n \in hs : LET d == Decide27(n, hs, {}, {}) IN ~Replicates(d) /\ d.del = "none"
-NoTasks(hs) == \A n \in hs : ~Replicates(Decide27(n, hs, {}, {}))
-
-\* a check "replicates" when it hands the replicator a task with at least one candidate node. (With overlapping
-\* rules the code as found keeps calling the replicator with an EMPTY candidate list: a holder remembered from
-\* an earlier rule does not lower the shortage of a later rule - a phantom shortage that copies nothing.)
-Replicates(d) == \E k \in 1..Len(d.tasks) : Len(d.tasks[k].nodes) > 0
-Quiet(hs) == \A n \in hs : LET d == Decide27(n, hs, {}, {}) IN ~Replicates(d) /\ d.del = "none"
-NoTasks(hs) == \A n \in hs : ~Replicates(Decide27(n, hs, {}, {}))
-
-\* a check "replicates" when it hands the replicator a task with at least one candidate node. (With overlapping
-\* rules the code as found keeps calling the replicator with an EMPTY candidate list: a holder remembered from
-\* an earlier rule does not lower the shortage of a later rule - a phantom shortage that copies nothing.)
-Replicates(d) == \E k \in 1..Len(d.tasks) : Len(d.tasks[k].nodes) > 0
-Quiet(hs) == \A n \in hs : LET d == Decide27(n, hs, {}, {}) IN ~Replicates(d) /\ d.del = "none"
-NoTasks(hs) == \A n \in hs : ~Replicates(Decide27(n, hs, {}, {}))
-\\* a check "replicates" when it hands the replicator a task with at least one candidate node. (With overlapping
-\* rules the code as found keeps calling the replicator with an EMPTY candidate list: a holder remembered from
-\* an earlier rule does not lower the shortage of a later rule - a phantom shortage that copies nothing.)
-Replicates(d) == \E k \in 1..Len(d.tasks) : Len(d.tasks[k].nodes) > 0
-Quiet(hs) == \A n \in hs : LET d == Decide27(n, hs, {}, {}) IN ~Replicates(d) /\ d.del = "none"
-NoTasks(hs) == \A n \in hs : ~Replicates(Decide27(n, hs, {}, {}))
-*\* a check "replicates" when it hands the replicator a task with at least one candidate node. (With overlapping
-\* rules the code as found keeps calling the replicator with an EMPTY candidate list: a holder remembered from
-\* an earlier rule does not lower the shortage of a later rule - a phantom shortage that copies nothing.)
-Replicates(d) == \E k \in 1..Len(d.tasks) : Len(d.tasks[k].nodes) > 0
-Quiet(hs) == \A n \in hs : LET d == Decide27(n, hs, {}, {}) IN ~Replicates(d) /\ d.del = "none"
-NoTasks(hs) == \A n \in hs : ~Replicates(Decide27(n, hs, {}, {}))
- \* a check "replicates" when it hands the replicator a task with at least one candidate node. (With overlapping
-\* rules the code as found keeps calling the replicator with an EMPTY candidate list: a holder remembered from
-\* an earlier rule does not lower the shortage of a later rule - a phantom shortage that copies nothing.)
-Replicates(d) == \E k \in 1..Len(d.tasks) : Len(d.tasks[k].nodes) > 0
-Quiet(hs) == \A n \in hs : LET d == Decide27(n, hs, {}, {}) IN ~Replicates(d) /\ d.del = "none"
-NoTasks(hs) == \A n \in hs : ~Replicates(Decide27(n, hs, {}, {}))
-C\* a check "replicates" when it hands the replicator a task with at least one candidate node. (With overlapping
-\* rules the code as found keeps calling the replicator with an EMPTY candidate list: a holder remembered from
-\* an earlier rule does not lower the shortage of a later rule - a phantom shortage that copies nothing.)
-Replicates(d) == \E k \in 1..Len(d.tasks) : Len(d.tasks[k].nodes) > 0
-Quiet(hs) == \A n \in hs : LET d == Decide27(n, hs, {}, {}) IN ~Replicates(d) /\ d.del = "none"
-NoTasks(hs) == \A n \in hs : ~Replicates(Decide27(n, hs, {}, {}))
-2\* a check "replicates" when it hands the replicator a task with at least one candidate node. (With overlapping
-\* rules the code as found keeps calling the replicator with an EMPTY candidate list: a holder remembered from
-\* an earlier rule does not lower the shortage of a later rule - a phantom shortage that copies nothing.)
-Replicates(d) == \E k \in 1..Len(d.tasks) : Len(d.tasks[k].nodes) > 0
-Quiet(hs) == \A n \in hs : LET d == Decide27(n, hs, {}, {}) IN ~Replicates(d) /\ d.del = "none"
-NoTasks(hs) == \A n \in hs : ~Replicates(Decide27(n, hs, {}, {}))
-7\* a check "replicates" when it hands the replicator a task with at least one candidate node. (With overlapping
-\* rules the code as found keeps calling the replicator with an EMPTY candidate list: a holder remembered from
-\* an earlier rule does not lower the shortage of a later rule - a phantom shortage that copies nothing.)
-Replicates(d) == \E k \in 1..Len(d.tasks) : Len(d.tasks[k].nodes) > 0
-Quiet(hs) == \A n \in hs : LET d == Decide27(n, hs, {}, {}) IN ~Replicates(d) /\ d.del = "none"
-NoTasks(hs) == \A n \in hs : ~Replicates(Decide27(n, hs, {}, {}))
-,\* a check "replicates" when it hands the replicator a task with at least one candidate node. (With overlapping
-\* rules the code as found keeps calling the replicator with an EMPTY candidate list: a holder remembered from
-\* an earlier rule does not lower the shortage of a later rule - a phantom shortage that copies nothing.)
-Replicates(d) == \E k \in 1..Len(d.tasks) : Len(d.tasks[k].nodes) > 0
-Quiet(hs) == \A n \in hs : LET d == Decide27(n, hs, {}, {}) IN ~Replicates(d) /\ d.del = "none"
-NoTasks(hs) == \A n \in hs : ~Replicates(Decide27(n, hs, {}, {}))
- \* a check "replicates" when it hands the replicator a task with at least one candidate node. (With overlapping
-\* rules the code as found keeps calling the replicator with an EMPTY candidate list: a holder remembered from
-\* an earlier rule does not lower the shortage of a later rule - a phantom shortage that copies nothing.)
-Replicates(d) == \E k \in 1..Len(d.tasks) : Len(d.tasks[k].nodes) > 0
-Quiet(hs) == \A n \in hs : LET d == Decide27(n, hs, {}, {}) IN ~Replicates(d) /\ d.del = "none"
-NoTasks(hs) == \A n \in hs : ~Replicates(Decide27(n, hs, {}, {}))
-t\* a check "replicates" when it hands the replicator a task with at least one candidate node. (With overlapping
-\* rules the code as found keeps calling the replicator with an EMPTY candidate list: a holder remembered from
-\* an earlier rule does not lower the shortage of a later rule - a phantom shortage that copies nothing.)
-Replicates(d) == \E k \in 1..Len(d.tasks) : Len(d.tasks[k].nodes) > 0
-Quiet(hs) == \A n \in hs : LET d == Decide27(n, hs, {}, {}) IN ~Replicates(d) /\ d.del = "none"
-NoTasks(hs) == \A n \in hs : ~Replicates(Decide27(n, hs, {}, {}))
-e\* a check "replicates" when it hands the replicator a task with at least one candidate node. (With overlapping
-\* rules the code as found keeps calling the replicator with an EMPTY candidate list: a holder remembered from
-\* an earlier rule does not lower the shortage of a later rule - a phantom shortage that copies nothing.)
-Replicates(d) == \E k \in 1..Len(d.tasks) : Len(d.tasks[k].nodes) > 0
-Quiet(hs) == \A n \in hs : LET d == Decide27(n, hs, {}, {}) IN ~Replicates(d) /\ d.del = "none"
-NoTasks(hs) == \A n \in hs : ~Replicates(Decide27(n, hs, {}, {}))
-m\* a check "replicates" when it hands the replicator a task with at least one candidate node. (With overlapping
-\* rules the code as found keeps calling the replicator with an EMPTY candidate list: a holder remembered from
-\* an earlier rule does not lower the shortage of a later rule - a phantom shortage that copies nothing.)
-Replicates(d) == \E k \in 1..Len(d.tasks) : Len(d.tasks[k].nodes) > 0
-Quiet(hs) == \A n \in hs : LET d == Decide27(n, hs, {}, {}) IN ~Replicates(d) /\ d.del = "none"
-NoTasks(hs) == \A n \in hs : ~Replicates(Decide27(n, hs, {}, {}))
-p\* a check "replicates" when it hands the replicator a task with at least one candidate node. (With overlapping
-\* rules the code as found keeps calling the replicator with an EMPTY candidate list: a holder remembered from
-\* an earlier rule does not lower the shortage of a later rule - a phantom shortage that copies nothing.)
-Replicates(d) == \E k \in 1..Len(d.tasks) : Len(d.tasks[k].nodes) > 0
-Quiet(hs) == \A n \in hs : LET d == Decide27(n, hs, {}, {}) IN ~Replicates(d) /\ d.del = "none"
-NoTasks(hs) == \A n \in hs : ~Replicates(Decide27(n, hs, {}, {}))
-o\* a check "replicates" when it hands the replicator a task with at least one candidate node. (With overlapping
-\* rules the code as found keeps calling the replicator with an EMPTY candidate list: a holder remembered from
-\* an earlier rule does not lower the shortage of a later rule - a phantom shortage that copies nothing.)
-Replicates(d) == \E k \in 1..Len(d.tasks) : Len(d.tasks[k].nodes) > 0
-Quiet(hs) == \A n \in hs : LET d == Decide27(n, hs, {}, {}) IN ~Replicates(d) /\ d.del = "none"
-NoTasks(hs) == \A n \in hs : ~Replicates(Decide27(n, hs, {}, {}))
-r\* a check "replicates" when it hands the replicator a task with at least one candidate node. (With overlapping
-\* rules the code as found keeps calling the replicator with an EMPTY candidate list: a holder remembered from
-\* an earlier rule does not lower the shortage of a later rule - a phantom shortage that copies nothing.)
-Replicates(d) == \E k \in 1..Len(d.tasks) : Len(d.tasks[k].nodes) > 0
-Quiet(hs) == \A n \in hs : LET d == Decide27(n, hs, {}, {}) IN ~Replicates(d) /\ d.del = "none"
-NoTasks(hs) == \A n \in hs : ~Replicates(Decide27(n, hs, {}, {}))
-a\* a check "replicates" when it hands the replicator a task with at least one candidate node. (With overlapping
-\* rules the code as found keeps calling the replicator with an EMPTY candidate list: a holder remembered from
-\* an earlier rule does not lower the shortage of a later rule - a phantom shortage that copies nothing.)
-Replicates(d) == \E k \in 1..Len(d.tasks) : Len(d.tasks[k].nodes) > 0
-Quiet(hs) == \A n \in hs : LET d == Decide27(n, hs, {}, {}) IN ~Replicates(d) /\ d.del = "none"
-NoTasks(hs) == \A n \in hs : ~Replicates(Decide27(n, hs, {}, {}))
-l\* a check "replicates" when it hands the replicator a task with at least one candidate node. (With overlapping
-\* rules the code as found keeps calling the replicator with an EMPTY candidate list: a holder remembered from
-\* an earlier rule does not lower the shortage of a later rule - a phantom shortage that copies nothing.)
-Replicates(d) == \E k \in 1..Len(d.tasks) : Len(d.tasks[k].nodes) > 0
-Quiet(hs) == \A n \in hs : LET d == Decide27(n, hs, {}, {}) IN ~Replicates(d) /\ d.del = "none"
-NoTasks(hs) == \A n \in hs : ~Replicates(Decide27(n, hs, {}, {}))
- \* a check "replicates" when it hands the replicator a task with at least one candidate node. (With overlapping
-\* rules the code as found keeps calling the replicator with an EMPTY candidate list: a holder remembered from
-\* an earlier rule does not lower the shortage of a later rule - a phantom shortage that copies nothing.)
-Replicates(d) == \E k \in 1..Len(d.tasks) : Len(d.tasks[k].nodes) > 0
-Quiet(hs) == \A n \in hs : LET d == Decide27(n, hs, {}, {}) IN ~Replicates(d) /\ d.del = "none"
-NoTasks(hs) == \A n \in hs : ~Replicates(Decide27(n, hs, {}, {}))
-f\* a check "replicates" when it hands the replicator a task with at least one candidate node. (With overlapping
-\* rules the code as found keeps calling the replicator with an EMPTY candidate list: a holder remembered from
-\* an earlier rule does not lower the shortage of a later rule - a phantom shortage that copies nothing.)
-Replicates(d) == \E k \in 1..Len(d.tasks) : Len(d.tasks[k].nodes) > 0
-Quiet(hs) == \A n \in hs : LET d == Decide27(n, hs, {}, {}) IN ~Replicates(d) /\ d.del = "none"
-NoTasks(hs) == \A n \in hs : ~Replicates(Decide27(n, hs, {}, {}))
-o\* a check "replicates" when it hands the replicator a task with at least one candidate node. (With overlapping
-\* rules the code as found keeps calling the replicator with an EMPTY candidate list: a holder remembered from
-\* an earlier rule does not lower the shortage of a later rule - a phantom shortage that copies nothing.)
-Replicates(d) == \E k \in 1..Len(d.tasks) : Len(d.tasks[k].nodes) > 0
-Quiet(hs) == \A n \in hs : LET d == Decide27(n, hs, {}, {}) IN ~Replicates(d) /\ d.del = "none"
-NoTasks(hs) == \A n \in hs : ~Replicates(Decide27(n, hs, {}, {}))
-r\* a check "replicates" when it hands the replicator a task with at least one candidate node. (With overlapping
-\* rules the code as found keeps calling the replicator with an EMPTY candidate list: a holder remembered from
-\* an earlier rule does not lower the shortage of a later rule - a phantom shortage that copies nothing.)
-Replicates(d) == \E k \in 1..Len(d.tasks) : Len(d.tasks[k].nodes) > 0
-Quiet(hs) == \A n \in hs : LET d == Decide27(n, hs, {}, {}) IN ~Replicates(d) /\ d.del = "none"
-NoTasks(hs) == \A n \in hs : ~Replicates(Decide27(n, hs, {}, {}))
-m\* a check "replicates" when it hands the replicator a task with at least one candidate node. (With overlapping
-\* rules the code as found keeps calling the replicator with an EMPTY candidate list: a holder remembered from
-\* an earlier rule does not lower the shortage of a later rule - a phantom shortage that copies nothing.)
-Replicates(d) == \E k \in 1..Len(d.tasks) : Len(d.tasks[k].nodes) > 0
-Quiet(hs) == \A n \in hs : LET d == Decide27(n, hs, {}, {}) IN ~Replicates(d) /\ d.del = "none"
-NoTasks(hs) == \A n \in hs : ~Replicates(Decide27(n, hs, {}, {}))
-
-\* a check "replicates" when it hands the replicator a task with at least one candidate node. (With overlapping
-\* rules the code as found keeps calling the replicator with an EMPTY candidate list: a holder remembered from
-\* an earlier rule does not lower the shortage of a later rule - a phantom shortage that copies nothing.)
-Replicates(d) == \E k \in 1..Len(d.tasks) : Len(d.tasks[k].nodes) > 0
-Quiet(hs) == \A n \in hs : LET d == Decide27(n, hs, {}, {}) IN ~Replicates(d) /\ d.del = "none"
-NoTasks(hs) == \A n \in hs : ~Replicates(Decide27(n, hs, {}, {}))
-E\* a check "replicates" when it hands the replicator a task with at least one candidate node. (With overlapping
-\* rules the code as found keeps calling the replicator with an EMPTY candidate list: a holder remembered from
-\* an earlier rule does not lower the shortage of a later rule - a phantom shortage that copies nothing.)
-Replicates(d) == \E k \in 1..Len(d.tasks) : Len(d.tasks[k].nodes) > 0
-Quiet(hs) == \A n \in hs : LET d == Decide27(n, hs, {}, {}) IN ~Replicates(d) /\ d.del = "none"
-NoTasks(hs) == \A n \in hs : ~Replicates(Decide27(n, hs, {}, {}))
-v\* a check "replicates" when it hands the replicator a task with at least one candidate node. (With overlapping
-\* rules the code as found keeps calling the replicator with an EMPTY candidate list: a holder remembered from
-\* an earlier rule does not lower the shortage of a later rule - a phantom shortage that copies nothing.)
-Replicates(d) == \E k \in 1..Len(d.tasks) : Len(d.tasks[k].nodes) > 0
-Quiet(hs) == \A n \in hs : LET d == Decide27(n, hs, {}, {}) IN ~Replicates(d) /\ d.del = "none"
-NoTasks(hs) == \A n \in hs : ~Replicates(Decide27(n, hs, {}, {}))
-e\* a check "replicates" when it hands the replicator a task with at least one candidate node. (With overlapping
-\* rules the code as found keeps calling the replicator with an EMPTY candidate list: a holder remembered from
-\* an earlier rule does not lower the shortage of a later rule - a phantom shortage that copies nothing.)
-Replicates(d) == \E k \in 1..Len(d.tasks) : Len(d.tasks[k].nodes) > 0
-Quiet(hs) == \A n \in hs : LET d == Decide27(n, hs, {}, {}) IN ~Replicates(d) /\ d.del = "none"
-NoTasks(hs) == \A n \in hs : ~Replicates(Decide27(n, hs, {}, {}))
-n\* a check "replicates" when it hands the replicator a task with at least one candidate node. (With overlapping
-\* rules the code as found keeps calling the replicator with an EMPTY candidate list: a holder remembered from
-\* an earlier rule does not lower the shortage of a later rule - a phantom shortage that copies nothing.)
-Replicates(d) == \E k \in 1..Len(d.tasks) : Len(d.tasks[k].nodes) > 0
-Quiet(hs) == \A n \in hs : LET d == Decide27(n, hs, {}, {}) IN ~Replicates(d) /\ d.del = "none"
-NoTasks(hs) == \A n \in hs : ~Replicates(Decide27(n, hs, {}, {}))
-t\* a check "replicates" when it hands the replicator a task with at least one candidate node. (With overlapping
-\* rules the code as found keeps calling the replicator with an EMPTY candidate list: a holder remembered from
-\* an earlier rule does not lower the shortage of a later rule - a phantom shortage that copies nothing.)
-Replicates(d) == \E k \in 1..Len(d.tasks) : Len(d.tasks[k].nodes) > 0
-Quiet(hs) == \A n \in hs : LET d == Decide27(n, hs, {}, {}) IN ~Replicates(d) /\ d.del = "none"
-NoTasks(hs) == \A n \in hs : ~Replicates(Decide27(n, hs, {}, {}))
-u\* a check "replicates" when it hands the replicator a task with at least one candidate node. (With overlapping
-\* rules the code as found keeps calling the replicator with an EMPTY candidate list: a holder remembered from
-\* an earlier rule does not lower the shortage of a later rule - a phantom shortage that copies nothing.)
-Replicates(d) == \E k \in 1..Len(d.tasks) : Len(d.tasks[k].nodes) > 0
-Quiet(hs) == \A n \in hs : LET d == Decide27(n, hs, {}, {}) IN ~Replicates(d) /\ d.del = "none"
-NoTasks(hs) == \A n \in hs : ~Replicates(Decide27(n, hs, {}, {}))
-a\* a check "replicates" when it hands the replicator a task with at least one candidate node. (With overlapping
-\* rules the code as found keeps calling the replicator with an EMPTY candidate list: a holder remembered from
-\* an earlier rule does not lower the shortage of a later rule - a phantom shortage that copies nothing.)
-Replicates(d) == \E k \in 1..Len(d.tasks) : Len(d.tasks[k].nodes) > 0
-Quiet(hs) == \A n \in hs : LET d == Decide27(n, hs, {}, {}) IN ~Replicates(d) /\ d.del = "none"
-NoTasks(hs) == \A n \in hs : ~Replicates(Decide27(n, hs, {}, {}))
-l\* a check "replicates" when it hands the replicator a task with at least one candidate node. (With overlapping
-\* rules the code as found keeps calling the replicator with an EMPTY candidate list: a holder remembered from
-\* an earlier rule does not lower the shortage of a later rule - a phantom shortage that copies nothing.)
-Replicates(d) == \E k \in 1..Len(d.tasks) : Len(d.tasks[k].nodes) > 0
-Quiet(hs) == \A n \in hs : LET d == Decide27(n, hs, {}, {}) IN ~Replicates(d) /\ d.del = "none"
-NoTasks(hs) == \A n \in hs : ~Replicates(Decide27(n, hs, {}, {}))
-l\* a check "replicates" when it hands the replicator a task with at least one candidate node. (With overlapping
-\* rules the code as found keeps calling the replicator with an EMPTY candidate list: a holder remembered from
-\* an earlier rule does not lower the shortage of a later rule - a phantom shortage that copies nothing.)
-Replicates(d) == \E k \in 1..Len(d.tasks) : Len(d.tasks[k].nodes) > 0
-Quiet(hs) == \A n \in hs : LET d == Decide27(n, hs, {}, {}) IN ~Replicates(d) /\ d.del = "none"
-NoTasks(hs) == \A n \in hs : ~Replicates(Decide27(n, hs, {}, {}))
-y\* a check "replicates" when it hands the replicator a task with at least one candidate node. (With overlapping
-\* rules the code as found keeps calling the replicator with an EMPTY candidate list: a holder remembered from
-\* an earlier rule does not lower the shortage of a later rule - a phantom shortage that copies nothing.)
-Replicates(d) == \E k \in 1..Len(d.tasks) : Len(d.tasks[k].nodes) > 0
-Quiet(hs) == \A n \in hs : LET d == Decide27(n, hs, {}, {}) IN ~Replicates(d) /\ d.del = "none"
-NoTasks(hs) == \A n \in hs : ~Replicates(Decide27(n, hs, {}, {}))
-C\* a check "replicates" when it hands the replicator a task with at least one candidate node. (With overlapping
-\* rules the code as found keeps calling the replicator with an EMPTY candidate list: a holder remembered from
-\* an earlier rule does not lower the shortage of a later rule - a phantom shortage that copies nothing.)
-Replicates(d) == \E k \in 1..Len(d.tasks) : Len(d.tasks[k].nodes) > 0
-Quiet(hs) == \A n \in hs : LET d == Decide27(n, hs, {}, {}) IN ~Replicates(d) /\ d.del = "none"
-NoTasks(hs) == \A n \in hs : ~Replicates(Decide27(n, hs, {}, {}))
-o\* a check "replicates" when it hands the replicator a task with at least one candidate node. (With overlapping
-\* rules the code as found keeps calling the replicator with an EMPTY candidate list: a holder remembered from
-\* an earlier rule does not lower the shortage of a later rule - a phantom shortage that copies nothing.)
-Replicates(d) == \E k \in 1..Len(d.tasks) : Len(d.tasks[k].nodes) > 0
-Quiet(hs) == \A n \in hs : LET d == Decide27(n, hs, {}, {}) IN ~Replicates(d) /\ d.del = "none"
-NoTasks(hs) == \A n \in hs : ~Replicates(Decide27(n, hs, {}, {}))
-n\* a check "replicates" when it hands the replicator a task with at least one candidate node. (With overlapping
-\* rules the code as found keeps calling the replicator with an EMPTY candidate list: a holder remembered from
-\* an earlier rule does not lower the shortage of a later rule - a phantom shortage that copies nothing.)
-Replicates(d) == \E k \in 1..Len(d.tasks) : Len(d.tasks[k].nodes) > 0
-Quiet(hs) == \A n \in hs : LET d == Decide27(n, hs, {}, {}) IN ~Replicates(d) /\ d.del = "none"
-NoTasks(hs) == \A n \in hs : ~Replicates(Decide27(n, hs, {}, {}))
-v\* a check "replicates" when it hands the replicator a task with at least one candidate node. (With overlapping
-\* rules the code as found keeps calling the replicator with an EMPTY candidate list: a holder remembered from
-\* an earlier rule does not lower the shortage of a later rule - a phantom shortage that copies nothing.)
-Replicates(d) == \E k \in 1..Len(d.tasks) : Len(d.tasks[k].nodes) > 0
-Quiet(hs) == \A n \in hs : LET d == Decide27(n, hs, {}, {}) IN ~Replicates(d) /\ d.del = "none"
-NoTasks(hs) == \A n \in hs : ~Replicates(Decide27(n, hs, {}, {}))
-e\* a check "replicates" when it hands the replicator a task with at least one candidate node. (With overlapping
-\* rules the code as found keeps calling the replicator with an EMPTY candidate list: a holder remembered from
-\* an earlier rule does not lower the shortage of a later rule - a phantom shortage that copies nothing.)
-Replicates(d) == \E k \in 1..Len(d.tasks) : Len(d.tasks[k].nodes) > 0
-Quiet(hs) == \A n \in hs : LET d == Decide27(n, hs, {}, {}) IN ~Replicates(d) /\ d.del = "none"
-NoTasks(hs) == \A n \in hs : ~Replicates(Decide27(n, hs, {}, {}))
-r\* a check "replicates" when it hands the replicator a task with at least one candidate node. (With overlapping
-\* rules the code as found keeps calling the replicator with an EMPTY candidate list: a holder remembered from
-\* an earlier rule does not lower the shortage of a later rule - a phantom shortage that copies nothing.)
-Replicates(d) == \E k \in 1..Len(d.tasks) : Len(d.tasks[k].nodes) > 0
-Quiet(hs) == \A n \in hs : LET d == Decide27(n, hs, {}, {}) IN ~Replicates(d) /\ d.del = "none"
-NoTasks(hs) == \A n \in hs : ~Replicates(Decide27(n, hs, {}, {}))
-g\* a check "replicates" when it hands the replicator a task with at least one candidate node. (With overlapping
-\* rules the code as found keeps calling the replicator with an EMPTY candidate list: a holder remembered from
-\* an earlier rule does not lower the shortage of a later rule - a phantom shortage that copies nothing.)
-Replicates(d) == \E k \in 1..Len(d.tasks) : Len(d.tasks[k].nodes) > 0
-Quiet(hs) == \A n \in hs : LET d == Decide27(n, hs, {}, {}) IN ~Replicates(d) /\ d.del = "none"
-NoTasks(hs) == \A n \in hs : ~Replicates(Decide27(n, hs, {}, {}))
-e\* a check "replicates" when it hands the replicator a task with at least one candidate node. (With overlapping
-\* rules the code as found keeps calling the replicator with an EMPTY candidate list: a holder remembered from
-\* an earlier rule does not lower the shortage of a later rule - a phantom shortage that copies nothing.)
-Replicates(d) == \E k \in 1..Len(d.tasks) : Len(d.tasks[k].nodes) > 0
-Quiet(hs) == \A n \in hs : LET d == Decide27(n, hs, {}, {}) IN ~Replicates(d) /\ d.del = "none"
-NoTasks(hs) == \A n \in hs : ~Replicates(Decide27(n, hs, {}, {}))
-d\* a check "replicates" when it hands the replicator a task with at least one candidate node. (With overlapping
-\* rules the code as found keeps calling the replicator with an EMPTY candidate list: a holder remembered from
-\* an earlier rule does not lower the shortage of a later rule - a phantom shortage that copies nothing.)
-Replicates(d) == \E k \in 1..Len(d.tasks) : Len(d.tasks[k].nodes) > 0
-Quiet(hs) == \A n \in hs : LET d == Decide27(n, hs, {}, {}) IN ~Replicates(d) /\ d.del = "none"
-NoTasks(hs) == \A n \in hs : ~Replicates(Decide27(n, hs, {}, {}))
-F\* a check "replicates" when it hands the replicator a task with at least one candidate node. (With overlapping
-\* rules the code as found keeps calling the replicator with an EMPTY candidate list: a holder remembered from
-\* an earlier rule does not lower the shortage of a later rule - a phantom shortage that copies nothing.)
-Replicates(d) == \E k \in 1..Len(d.tasks) : Len(d.tasks[k].nodes) > 0
-Quiet(hs) == \A n \in hs : LET d == Decide27(n, hs, {}, {}) IN ~Replicates(d) /\ d.del = "none"
-NoTasks(hs) == \A n \in hs : ~Replicates(Decide27(n, hs, {}, {}))
-o\* a check "replicates" when it hands the replicator a task with at least one candidate node. (With overlapping
-\* rules the code as found keeps calling the replicator with an EMPTY candidate list: a holder remembered from
-\* an earlier rule does not lower the shortage of a later rule - a phantom shortage that copies nothing.)
-Replicates(d) == \E k \in 1..Len(d.tasks) : Len(d.tasks[k].nodes) > 0
-Quiet(hs) == \A n \in hs : LET d == Decide27(n, hs, {}, {}) IN ~Replicates(d) /\ d.del = "none"
-NoTasks(hs) == \A n \in hs : ~Replicates(Decide27(n, hs, {}, {}))
-r\* a check "replicates" when it hands the replicator a task with at least one candidate node. (With overlapping
-\* rules the code as found keeps calling the replicator with an EMPTY candidate list: a holder remembered from
-\* an earlier rule does not lower the shortage of a later rule - a phantom shortage that copies nothing.)
-Replicates(d) == \E k \in 1..Len(d.tasks) : Len(d.tasks[k].nodes) > 0
-Quiet(hs) == \A n \in hs : LET d == Decide27(n, hs, {}, {}) IN ~Replicates(d) /\ d.del = "none"
-NoTasks(hs) == \A n \in hs : ~Replicates(Decide27(n, hs, {}, {}))
-e\* a check "replicates" when it hands the replicator a task with at least one candidate node. (With overlapping
-\* rules the code as found keeps calling the replicator with an EMPTY candidate list: a holder remembered from
-\* an earlier rule does not lower the shortage of a later rule - a phantom shortage that copies nothing.)
-Replicates(d) == \E k \in 1..Len(d.tasks) : Len(d.tasks[k].nodes) > 0
-Quiet(hs) == \A n \in hs : LET d == Decide27(n, hs, {}, {}) IN ~Replicates(d) /\ d.del = "none"
-NoTasks(hs) == \A n \in hs : ~Replicates(Decide27(n, hs, {}, {}))
-v\* a check "replicates" when it hands the replicator a task with at least one candidate node. (With overlapping
-\* rules the code as found keeps calling the replicator with an EMPTY candidate list: a holder remembered from
-\* an earlier rule does not lower the shortage of a later rule - a phantom shortage that copies nothing.)
-Replicates(d) == \E k \in 1..Len(d.tasks) : Len(d.tasks[k].nodes) > 0
-Quiet(hs) == \A n \in hs : LET d == Decide27(n, hs, {}, {}) IN ~Replicates(d) /\ d.del = "none"
-NoTasks(hs) == \A n \in hs : ~Replicates(Decide27(n, hs, {}, {}))
-e\* a check "replicates" when it hands the replicator a task with at least one candidate node. (With overlapping
-\* rules the code as found keeps calling the replicator with an EMPTY candidate list: a holder remembered from
-\* an earlier rule does not lower the shortage of a later rule - a phantom shortage that copies nothing.)
-Replicates(d) == \E k \in 1..Len(d.tasks) : Len(d.tasks[k].nodes) > 0
-Quiet(hs) == \A n \in hs : LET d == Decide27(n, hs, {}, {}) IN ~Replicates(d) /\ d.del = "none"
-NoTasks(hs) == \A n \in hs : ~Replicates(Decide27(n, hs, {}, {}))
-r\* a check "replicates" when it hands the replicator a task with at least one candidate node. (With overlapping
-\* rules the code as found keeps calling the replicator with an EMPTY candidate list: a holder remembered from
-\* an earlier rule does not lower the shortage of a later rule - a phantom shortage that copies nothing.)
-Replicates(d) == \E k \in 1..Len(d.tasks) : Len(d.tasks[k].nodes) > 0
-Quiet(hs) == \A n \in hs : LET d == Decide27(n, hs, {}, {}) IN ~Replicates(d) /\ d.del = "none"
-NoTasks(hs) == \A n \in hs : ~Replicates(Decide27(n, hs, {}, {}))
- \* a check "replicates" when it hands the replicator a task with at least one candidate node. (With overlapping
-\* rules the code as found keeps calling the replicator with an EMPTY candidate list: a holder remembered from
-\* an earlier rule does not lower the shortage of a later rule - a phantom shortage that copies nothing.)
-Replicates(d) == \E k \in 1..Len(d.tasks) : Len(d.tasks[k].nodes) > 0
-Quiet(hs) == \A n \in hs : LET d == Decide27(n, hs, {}, {}) IN ~Replicates(d) /\ d.del = "none"
-NoTasks(hs) == \A n \in hs : ~Replicates(Decide27(n, hs, {}, {}))
-=\* a check "replicates" when it hands the replicator a task with at least one candidate node. (With overlapping
-\* rules the code as found keeps calling the replicator with an EMPTY candidate list: a holder remembered from
-\* an earlier rule does not lower the shortage of a later rule - a phantom shortage that copies nothing.)
-Replicates(d) == \E k \in 1..Len(d.tasks) : Len(d.tasks[k].nodes) > 0
-Quiet(hs) == \A n \in hs : LET d == Decide27(n, hs, {}, {}) IN ~Replicates(d) /\ d.del = "none"
-NoTasks(hs) == \A n \in hs : ~Replicates(Decide27(n, hs, {}, {}))
-=\* a check "replicates" when it hands the replicator a task with at least one candidate node. (With overlapping
-\* rules the code as found keeps calling the replicator with an EMPTY candidate list: a holder remembered from
-\* an earlier rule does not lower the shortage of a later rule - a phantom shortage that copies nothing.)
-Replicates(d) == \E k \in 1..Len(d.tasks) : Len(d.tasks[k].nodes) > 0
-Quiet(hs) == \A n \in hs : LET d == Decide27(n, hs, {}, {}) IN ~Replicates(d) /\ d.del = "none"
-NoTasks(hs) == \A n \in hs : ~Replicates(Decide27(n, hs, {}, {}))
- \* a check "replicates" when it hands the replicator a task with at least one candidate node. (With overlapping
-\* rules the code as found keeps calling the replicator with an EMPTY candidate list: a holder remembered from
-\* an earlier rule does not lower the shortage of a later rule - a phantom shortage that copies nothing.)
-Replicates(d) == \E k \in 1..Len(d.tasks) : Len(d.tasks[k].nodes) > 0
-Quiet(hs) == \A n \in hs : LET d == Decide27(n, hs, {}, {}) IN ~Replicates(d) /\ d.del = "none"
-NoTasks(hs) == \A n \in hs : ~Replicates(Decide27(n, hs, {}, {}))
-<\* a check "replicates" when it hands the replicator a task with at least one candidate node. (With overlapping
-\* rules the code as found keeps calling the replicator with an EMPTY candidate list: a holder remembered from
-\* an earlier rule does not lower the shortage of a later rule - a phantom shortage that copies nothing.)
-Replicates(d) == \E k \in 1..Len(d.tasks) : Len(d.tasks[k].nodes) > 0
-Quiet(hs) == \A n \in hs : LET d == Decide27(n, hs, {}, {}) IN ~Replicates(d) /\ d.del = "none"
-NoTasks(hs) == \A n \in hs : ~Replicates(Decide27(n, hs, {}, {}))
->\* a check "replicates" when it hands the replicator a task with at least one candidate node. (With overlapping
-\* rules the code as found keeps calling the replicator with an EMPTY candidate list: a holder remembered from
-\* an earlier rule does not lower the shortage of a later rule - a phantom shortage that copies nothing.)
-Replicates(d) == \E k \in 1..Len(d.tasks) : Len(d.tasks[k].nodes) > 0
-Quiet(hs) == \A n \in hs : LET d == Decide27(n, hs, {}, {}) IN ~Replicates(d) /\ d.del = "none"
-NoTasks(hs) == \A n \in hs : ~Replicates(Decide27(n, hs, {}, {}))
-[\* a check "replicates" when it hands the replicator a task with at least one candidate node. (With overlapping
-\* rules the code as found keeps calling the replicator with an EMPTY candidate list: a holder remembered from
-\* an earlier rule does not lower the shortage of a later rule - a phantom shortage that copies nothing.)
-Replicates(d) == \E k \in 1..Len(d.tasks) : Len(d.tasks[k].nodes) > 0
-Quiet(hs) == \A n \in hs : LET d == Decide27(n, hs, {}, {}) IN ~Replicates(d) /\ d.del = "none"
-NoTasks(hs) == \A n \in hs : ~Replicates(Decide27(n, hs, {}, {}))
-]\* a check "replicates" when it hands the replicator a task with at least one candidate node. (With overlapping
-\* rules the code as found keeps calling the replicator with an EMPTY candidate list: a holder remembered from
-\* an earlier rule does not lower the shortage of a later rule - a phantom shortage that copies nothing.)
-Replicates(d) == \E k \in 1..Len(d.tasks) : Len(d.tasks[k].nodes) > 0
-Quiet(hs) == \A n \in hs : LET d == Decide27(n, hs, {}, {}) IN ~Replicates(d) /\ d.del = "none"
-NoTasks(hs) == \A n \in hs : ~Replicates(Decide27(n, hs, {}, {}))
-C\* a check "replicates" when it hands the replicator a task with at least one candidate node. (With overlapping
-\* rules the code as found keeps calling the replicator with an EMPTY candidate list: a holder remembered from
-\* an earlier rule does not lower the shortage of a later rule - a phantom shortage that copies nothing.)
-Replicates(d) == \E k \in 1..Len(d.tasks) : Len(d.tasks[k].nodes) > 0
-Quiet(hs) == \A n \in hs : LET d == Decide27(n, hs, {}, {}) IN ~Replicates(d) /\ d.del = "none"
-NoTasks(hs) == \A n \in hs : ~Replicates(Decide27(n, hs, {}, {}))
-o\* a check "replicates" when it hands the replicator a task with at least one candidate node. (With overlapping
-\* rules the code as found keeps calling the replicator with an EMPTY candidate list: a holder remembered from
-\* an earlier rule does not lower the shortage of a later rule - a phantom shortage that copies nothing.)
-Replicates(d) == \E k \in 1..Len(d.tasks) : Len(d.tasks[k].nodes) > 0
-Quiet(hs) == \A n \in hs : LET d == Decide27(n, hs, {}, {}) IN ~Replicates(d) /\ d.del = "none"
-NoTasks(hs) == \A n \in hs : ~Replicates(Decide27(n, hs, {}, {}))
-n\* a check "replicates" when it hands the replicator a task with at least one candidate node. (With overlapping
-\* rules the code as found keeps calling the replicator with an EMPTY candidate list: a holder remembered from
-\* an earlier rule does not lower the shortage of a later rule - a phantom shortage that copies nothing.)
-Replicates(d) == \E k \in 1..Len(d.tasks) : Len(d.tasks[k].nodes) > 0
-Quiet(hs) == \A n \in hs : LET d == Decide27(n, hs, {}, {}) IN ~Replicates(d) /\ d.del = "none"
-NoTasks(hs) == \A n \in hs : ~Replicates(Decide27(n, hs, {}, {}))
-v\* a check "replicates" when it hands the replicator a task with at least one candidate node. (With overlapping
-\* rules the code as found keeps calling the replicator with an EMPTY candidate list: a holder remembered from
-\* an earlier rule does not lower the shortage of a later rule - a phantom shortage that copies nothing.)
-Replicates(d) == \E k \in 1..Len(d.tasks) : Len(d.tasks[k].nodes) > 0
-Quiet(hs) == \A n \in hs : LET d == Decide27(n, hs, {}, {}) IN ~Replicates(d) /\ d.del = "none"
-NoTasks(hs) == \A n \in hs : ~Replicates(Decide27(n, hs, {}, {}))
-e\* a check "replicates" when it hands the replicator a task with at least one candidate node. (With overlapping
-\* rules the code as found keeps calling the replicator with an EMPTY candidate list: a holder remembered from
-\* an earlier rule does not lower the shortage of a later rule - a phantom shortage that copies nothing.)
-Replicates(d) == \E k \in 1..Len(d.tasks) : Len(d.tasks[k].nodes) > 0
-Quiet(hs) == \A n \in hs : LET d == Decide27(n, hs, {}, {}) IN ~Replicates(d) /\ d.del = "none"
-NoTasks(hs) == \A n \in hs : ~Replicates(Decide27(n, hs, {}, {}))
-r\* a check "replicates" when it hands the replicator a task with at least one candidate node. (With overlapping
-\* rules the code as found keeps calling the replicator with an EMPTY candidate list: a holder remembered from
-\* an earlier rule does not lower the shortage of a later rule - a phantom shortage that copies nothing.)
-Replicates(d) == \E k \in 1..Len(d.tasks) : Len(d.tasks[k].nodes) > 0
-Quiet(hs) == \A n \in hs : LET d == Decide27(n, hs, {}, {}) IN ~Replicates(d) /\ d.del = "none"
-NoTasks(hs) == \A n \in hs : ~Replicates(Decide27(n, hs, {}, {}))
-g\* a check "replicates" when it hands the replicator a task with at least one candidate node. (With overlapping
-\* rules the code as found keeps calling the replicator with an EMPTY candidate list: a holder remembered from
-\* an earlier rule does not lower the shortage of a later rule - a phantom shortage that copies nothing.)
-Replicates(d) == \E k \in 1..Len(d.tasks) : Len(d.tasks[k].nodes) > 0
-Quiet(hs) == \A n \in hs : LET d == Decide27(n, hs, {}, {}) IN ~Replicates(d) /\ d.del = "none"
-NoTasks(hs) == \A n \in hs : ~Replicates(Decide27(n, hs, {}, {}))
-e\* a check "replicates" when it hands the replicator a task with at least one candidate node. (With overlapping
-\* rules the code as found keeps calling the replicator with an EMPTY candidate list: a holder remembered from
-\* an earlier rule does not lower the shortage of a later rule - a phantom shortage that copies nothing.)
-Replicates(d) == \E k \in 1..Len(d.tasks) : Len(d.tasks[k].nodes) > 0
-Quiet(hs) == \A n \in hs : LET d == Decide27(n, hs, {}, {}) IN ~Replicates(d) /\ d.del = "none"
-NoTasks(hs) == \A n \in hs : ~Replicates(Decide27(n, hs, {}, {}))
-d\* a check "replicates" when it hands the replicator a task with at least one candidate node. (With overlapping
-\* rules the code as found keeps calling the replicator with an EMPTY candidate list: a holder remembered from
-\* an earlier rule does not lower the shortage of a later rule - a phantom shortage that copies nothing.)
-Replicates(d) == \E k \in 1..Len(d.tasks) : Len(d.tasks[k].nodes) > 0
-Quiet(hs) == \A n \in hs : LET d == Decide27(n, hs, {}, {}) IN ~Replicates(d) /\ d.del = "none"
-NoTasks(hs) == \A n \in hs : ~Replicates(Decide27(n, hs, {}, {}))
-
-\* a check "replicates" when it hands the replicator a task with at least one candidate node. (With overlapping
-\* rules the code as found keeps calling the replicator with an EMPTY candidate list: a holder remembered from
-\* an earlier rule does not lower the shortage of a later rule - a phantom shortage that copies nothing.)
-Replicates(d) == \E k \in 1..Len(d.tasks) : Len(d.tasks[k].nodes) > 0
-Quiet(hs) == \A n \in hs : LET d == Decide27(n, hs, {}, {}) IN ~Replicates(d) /\ d.del = "none"
-NoTasks(hs) == \A n \in hs : ~Replicates(Decide27(n, hs, {}, {}))
-\\* a check "replicates" when it hands the replicator a task with at least one candidate node. (With overlapping
-\* rules the code as found keeps calling the replicator with an EMPTY candidate list: a holder remembered from
-\* an earlier rule does not lower the shortage of a later rule - a phantom shortage that copies nothing.)
-Replicates(d) == \E k \in 1..Len(d.tasks) : Len(d.tasks[k].nodes) > 0
-Quiet(hs) == \A n \in hs : LET d == Decide27(n, hs, {}, {}) IN ~Replicates(d) /\ d.del = "none"
-NoTasks(hs) == \A n \in hs : ~Replicates(Decide27(n, hs, {}, {}))
-*\* a check "replicates" when it hands the replicator a task with at least one candidate node. (With overlapping
-\* rules the code as found keeps calling the replicator with an EMPTY candidate list: a holder remembered from
-\* an earlier rule does not lower the shortage of a later rule - a phantom shortage that copies nothing.)
-Replicates(d) == \E k \in 1..Len(d.tasks) : Len(d.tasks[k].nodes) > 0
-Quiet(hs) == \A n \in hs : LET d == Decide27(n, hs, {}, {}) IN ~Replicates(d) /\ d.del = "none"
-NoTasks(hs) == \A n \in hs : ~Replicates(Decide27(n, hs, {}, {}))
- \* a check "replicates" when it hands the replicator a task with at least one candidate node. (With overlapping
-\* rules the code as found keeps calling the replicator with an EMPTY candidate list: a holder remembered from
-\* an earlier rule does not lower the shortage of a later rule - a phantom shortage that copies nothing.)
-Replicates(d) == \E k \in 1..Len(d.tasks) : Len(d.tasks[k].nodes) > 0
-Quiet(hs) == \A n \in hs : LET d == Decide27(n, hs, {}, {}) IN ~Replicates(d) /\ d.del = "none"
-NoTasks(hs) == \A n \in hs : ~Replicates(Decide27(n, hs, {}, {}))
-C\* a check "replicates" when it hands the replicator a task with at least one candidate node. (With overlapping
-\* rules the code as found keeps calling the replicator with an EMPTY candidate list: a holder remembered from
-\* an earlier rule does not lower the shortage of a later rule - a phantom shortage that copies nothing.)
-Replicates(d) == \E k \in 1..Len(d.tasks) : Len(d.tasks[k].nodes) > 0
-Quiet(hs) == \A n \in hs : LET d == Decide27(n, hs, {}, {}) IN ~Replicates(d) /\ d.del = "none"
-NoTasks(hs) == \A n \in hs : ~Replicates(Decide27(n, hs, {}, {}))
-2\* a check "replicates" when it hands the replicator a task with at least one candidate node. (With overlapping
-\* rules the code as found keeps calling the replicator with an EMPTY candidate list: a holder remembered from
-\* an earlier rule does not lower the shortage of a later rule - a phantom shortage that copies nothing.)
-Replicates(d) == \E k \in 1..Len(d.tasks) : Len(d.tasks[k].nodes) > 0
-Quiet(hs) == \A n \in hs : LET d == Decide27(n, hs, {}, {}) IN ~Replicates(d) /\ d.del = "none"
-NoTasks(hs) == \A n \in hs : ~Replicates(Decide27(n, hs, {}, {}))
-7\* a check "replicates" when it hands the replicator a task with at least one candidate node. (With overlapping
-\* rules the code as found keeps calling the replicator with an EMPTY candidate list: a holder remembered from
-\* an earlier rule does not lower the shortage of a later rule - a phantom shortage that copies nothing.)
-Replicates(d) == \E k \in 1..Len(d.tasks) : Len(d.tasks[k].nodes) > 0
-Quiet(hs) == \A n \in hs : LET d == Decide27(n, hs, {}, {}) IN ~Replicates(d) /\ d.del = "none"
-NoTasks(hs) == \A n \in hs : ~Replicates(Decide27(n, hs, {}, {}))
-,\* a check "replicates" when it hands the replicator a task with at least one candidate node. (With overlapping
-\* rules the code as found keeps calling the replicator with an EMPTY candidate list: a holder remembered from
-\* an earlier rule does not lower the shortage of a later rule - a phantom shortage that copies nothing.)
-Replicates(d) == \E k \in 1..Len(d.tasks) : Len(d.tasks[k].nodes) > 0
-Quiet(hs) == \A n \in hs : LET d == Decide27(n, hs, {}, {}) IN ~Replicates(d) /\ d.del = "none"
-NoTasks(hs) == \A n \in hs : ~Replicates(Decide27(n, hs, {}, {}))
- \* a check "replicates" when it hands the replicator a task with at least one candidate node. (With overlapping
-\* rules the code as found keeps calling the replicator with an EMPTY candidate list: a holder remembered from
-\* an earlier rule does not lower the shortage of a later rule - a phantom shortage that copies nothing.)
-Replicates(d) == \E k \in 1..Len(d.tasks) : Len(d.tasks[k].nodes) > 0
-Quiet(hs) == \A n \in hs : LET d == Decide27(n, hs, {}, {}) IN ~Replicates(d) /\ d.del = "none"
-NoTasks(hs) == \A n \in hs : ~Replicates(Decide27(n, hs, {}, {}))
-b\* a check "replicates" when it hands the replicator a task with at least one candidate node. (With overlapping
-\* rules the code as found keeps calling the replicator with an EMPTY candidate list: a holder remembered from
-\* an earlier rule does not lower the shortage of a later rule - a phantom shortage that copies nothing.)
-Replicates(d) == \E k \in 1..Len(d.tasks) : Len(d.tasks[k].nodes) > 0
-Quiet(hs) == \A n \in hs : LET d == Decide27(n, hs, {}, {}) IN ~Replicates(d) /\ d.del = "none"
-NoTasks(hs) == \A n \in hs : ~Replicates(Decide27(n, hs, {}, {}))
-o\* a check "replicates" when it hands the replicator a task with at least one candidate node. (With overlapping
-\* rules the code as found keeps calling the replicator with an EMPTY candidate list: a holder remembered from
-\* an earlier rule does not lower the shortage of a later rule - a phantom shortage that copies nothing.)
-Replicates(d) == \E k \in 1..Len(d.tasks) : Len(d.tasks[k].nodes) > 0
-Quiet(hs) == \A n \in hs : LET d == Decide27(n, hs, {}, {}) IN ~Replicates(d) /\ d.del = "none"
-NoTasks(hs) == \A n \in hs : ~Replicates(Decide27(n, hs, {}, {}))
-u\* a check "replicates" when it hands the replicator a task with at least one candidate node. (With overlapping
-\* rules the code as found keeps calling the replicator with an EMPTY candidate list: a holder remembered from
-\* an earlier rule does not lower the shortage of a later rule - a phantom shortage that copies nothing.)
-Replicates(d) == \E k \in 1..Len(d.tasks) : Len(d.tasks[k].nodes) > 0
-Quiet(hs) == \A n \in hs : LET d == Decide27(n, hs, {}, {}) IN ~Replicates(d) /\ d.del = "none"
-NoTasks(hs) == \A n \in hs : ~Replicates(Decide27(n, hs, {}, {}))
-n\* a check "replicates" when it hands the replicator a task with at least one candidate node. (With overlapping
-\* rules the code as found keeps calling the replicator with an EMPTY candidate list: a holder remembered from
-\* an earlier rule does not lower the shortage of a later rule - a phantom shortage that copies nothing.)
-Replicates(d) == \E k \in 1..Len(d.tasks) : Len(d.tasks[k].nodes) > 0
-Quiet(hs) == \A n \in hs : LET d == Decide27(n, hs, {}, {}) IN ~Replicates(d) /\ d.del = "none"
-NoTasks(hs) == \A n \in hs : ~Replicates(Decide27(n, hs, {}, {}))
-d\* a check "replicates" when it hands the replicator a task with at least one candidate node. (With overlapping
-\* rules the code as found keeps calling the replicator with an EMPTY candidate list: a holder remembered from
-\* an earlier rule does not lower the shortage of a later rule - a phantom shortage that copies nothing.)
-Replicates(d) == \E k \in 1..Len(d.tasks) : Len(d.tasks[k].nodes) > 0
-Quiet(hs) == \A n \in hs : LET d == Decide27(n, hs, {}, {}) IN ~Replicates(d) /\ d.del = "none"
-NoTasks(hs) == \A n \in hs : ~Replicates(Decide27(n, hs, {}, {}))
-e\* a check "replicates" when it hands the replicator a task with at least one candidate node. (With overlapping
-\* rules the code as found keeps calling the replicator with an EMPTY candidate list: a holder remembered from
-\* an earlier rule does not lower the shortage of a later rule - a phantom shortage that copies nothing.)
-Replicates(d) == \E k \in 1..Len(d.tasks) : Len(d.tasks[k].nodes) > 0
-Quiet(hs) == \A n \in hs : LET d == Decide27(n, hs, {}, {}) IN ~Replicates(d) /\ d.del = "none"
-NoTasks(hs) == \A n \in hs : ~Replicates(Decide27(n, hs, {}, {}))
-d\* a check "replicates" when it hands the replicator a task with at least one candidate node. (With overlapping
-\* rules the code as found keeps calling the replicator with an EMPTY candidate list: a holder remembered from
-\* an earlier rule does not lower the shortage of a later rule - a phantom shortage that copies nothing.)
-Replicates(d) == \E k \in 1..Len(d.tasks) : Len(d.tasks[k].nodes) > 0
-Quiet(hs) == \A n \in hs : LET d == Decide27(n, hs, {}, {}) IN ~Replicates(d) /\ d.del = "none"
-NoTasks(hs) == \A n \in hs : ~Replicates(Decide27(n, hs, {}, {}))
- \* a check "replicates" when it hands the replicator a task with at least one candidate node. (With overlapping
-\* rules the code as found keeps calling the replicator with an EMPTY candidate list: a holder remembered from
-\* an earlier rule does not lower the shortage of a later rule - a phantom shortage that copies nothing.)
-Replicates(d) == \E k \in 1..Len(d.tasks) : Len(d.tasks[k].nodes) > 0
-Quiet(hs) == \A n \in hs : LET d == Decide27(n, hs, {}, {}) IN ~Replicates(d) /\ d.del = "none"
-NoTasks(hs) == \A n \in hs : ~Replicates(Decide27(n, hs, {}, {}))
-f\* a check "replicates" when it hands the replicator a task with at least one candidate node. (With overlapping
-\* rules the code as found keeps calling the replicator with an EMPTY candidate list: a holder remembered from
-\* an earlier rule does not lower the shortage of a later rule - a phantom shortage that copies nothing.)
-Replicates(d) == \E k \in 1..Len(d.tasks) : Len(d.tasks[k].nodes) > 0
-Quiet(hs) == \A n \in hs : LET d == Decide27(n, hs, {}, {}) IN ~Replicates(d) /\ d.del = "none"
-NoTasks(hs) == \A n \in hs : ~Replicates(Decide27(n, hs, {}, {}))
-o\* a check "replicates" when it hands the replicator a task with at least one candidate node. (With overlapping
-\* rules the code as found keeps calling the replicator with an EMPTY candidate list: a holder remembered from
-\* an earlier rule does not lower the shortage of a later rule - a phantom shortage that copies nothing.)
-Replicates(d) == \E k \in 1..Len(d.tasks) : Len(d.tasks[k].nodes) > 0
-Quiet(hs) == \A n \in hs : LET d == Decide27(n, hs, {}, {}) IN ~Replicates(d) /\ d.del = "none"
-NoTasks(hs) == \A n \in hs : ~Replicates(Decide27(n, hs, {}, {}))
-r\* a check "replicates" when it hands the replicator a task with at least one candidate node. (With overlapping
-\* rules the code as found keeps calling the replicator with an EMPTY candidate list: a holder remembered from
-\* an earlier rule does not lower the shortage of a later rule - a phantom shortage that copies nothing.)
-Replicates(d) == \E k \in 1..Len(d.tasks) : Len(d.tasks[k].nodes) > 0
-Quiet(hs) == \A n \in hs : LET d == Decide27(n, hs, {}, {}) IN ~Replicates(d) /\ d.del = "none"
-NoTasks(hs) == \A n \in hs : ~Replicates(Decide27(n, hs, {}, {}))
-m\* a check "replicates" when it hands the replicator a task with at least one candidate node. (With overlapping
-\* rules the code as found keeps calling the replicator with an EMPTY candidate list: a holder remembered from
-\* an earlier rule does not lower the shortage of a later rule - a phantom shortage that copies nothing.)
-Replicates(d) == \E k \in 1..Len(d.tasks) : Len(d.tasks[k].nodes) > 0
-Quiet(hs) == \A n \in hs : LET d == Decide27(n, hs, {}, {}) IN ~Replicates(d) /\ d.del = "none"
-NoTasks(hs) == \A n \in hs : ~Replicates(Decide27(n, hs, {}, {}))
-
-\* a check "replicates" when it hands the replicator a task with at least one candidate node. (With overlapping
-\* rules the code as found keeps calling the replicator with an EMPTY candidate list: a holder remembered from
-\* an earlier rule does not lower the shortage of a later rule - a phantom shortage that copies nothing.)
-Replicates(d) == \E k \in 1..Len(d.tasks) : Len(d.tasks[k].nodes) > 0
-Quiet(hs) == \A n \in hs : LET d == Decide27(n, hs, {}, {}) IN ~Replicates(d) /\ d.del = "none"
-NoTasks(hs) == \A n \in hs : ~Replicates(Decide27(n, hs, {}, {}))
-C\* a check "replicates" when it hands the replicator a task with at least one candidate node. (With overlapping
-\* rules the code as found keeps calling the replicator with an EMPTY candidate list: a holder remembered from
-\* an earlier rule does not lower the shortage of a later rule - a phantom shortage that copies nothing.)
-Replicates(d) == \E k \in 1..Len(d.tasks) : Len(d.tasks[k].nodes) > 0
-Quiet(hs) == \A n \in hs : LET d == Decide27(n, hs, {}, {}) IN ~Replicates(d) /\ d.del = "none"
-NoTasks(hs) == \A n \in hs : ~Replicates(Decide27(n, hs, {}, {}))
-o\* a check "replicates" when it hands the replicator a task with at least one candidate node. (With overlapping
-\* rules the code as found keeps calling the replicator with an EMPTY candidate list: a holder remembered from
-\* an earlier rule does not lower the shortage of a later rule - a phantom shortage that copies nothing.)
-Replicates(d) == \E k \in 1..Len(d.tasks) : Len(d.tasks[k].nodes) > 0
-Quiet(hs) == \A n \in hs : LET d == Decide27(n, hs, {}, {}) IN ~Replicates(d) /\ d.del = "none"
-NoTasks(hs) == \A n \in hs : ~Replicates(Decide27(n, hs, {}, {}))
-n\* a check "replicates" when it hands the replicator a task with at least one candidate node. (With overlapping
-\* rules the code as found keeps calling the replicator with an EMPTY candidate list: a holder remembered from
-\* an earlier rule does not lower the shortage of a later rule - a phantom shortage that copies nothing.)
-Replicates(d) == \E k \in 1..Len(d.tasks) : Len(d.tasks[k].nodes) > 0
-Quiet(hs) == \A n \in hs : LET d == Decide27(n, hs, {}, {}) IN ~Replicates(d) /\ d.del = "none"
-NoTasks(hs) == \A n \in hs : ~Replicates(Decide27(n, hs, {}, {}))
-v\* a check "replicates" when it hands the replicator a task with at least one candidate node. (With overlapping
-\* rules the code as found keeps calling the replicator with an EMPTY candidate list: a holder remembered from
-\* an earlier rule does not lower the shortage of a later rule - a phantom shortage that copies nothing.)
-Replicates(d) == \E k \in 1..Len(d.tasks) : Len(d.tasks[k].nodes) > 0
-Quiet(hs) == \A n \in hs : LET d == Decide27(n, hs, {}, {}) IN ~Replicates(d) /\ d.del = "none"
-NoTasks(hs) == \A n \in hs : ~Replicates(Decide27(n, hs, {}, {}))
-e\* a check "replicates" when it hands the replicator a task with at least one candidate node. (With overlapping
-\* rules the code as found keeps calling the replicator with an EMPTY candidate list: a holder remembered from
-\* an earlier rule does not lower the shortage of a later rule - a phantom shortage that copies nothing.)
-Replicates(d) == \E k \in 1..Len(d.tasks) : Len(d.tasks[k].nodes) > 0
-Quiet(hs) == \A n \in hs : LET d == Decide27(n, hs, {}, {}) IN ~Replicates(d) /\ d.del = "none"
-NoTasks(hs) == \A n \in hs : ~Replicates(Decide27(n, hs, {}, {}))
-r\* a check "replicates" when it hands the replicator a task with at least one candidate node. (With overlapping
-\* rules the code as found keeps calling the replicator with an EMPTY candidate list: a holder remembered from
-\* an earlier rule does not lower the shortage of a later rule - a phantom shortage that copies nothing.)
-Replicates(d) == \E k \in 1..Len(d.tasks) : Len(d.tasks[k].nodes) > 0
-Quiet(hs) == \A n \in hs : LET d == Decide27(n, hs, {}, {}) IN ~Replicates(d) /\ d.del = "none"
-NoTasks(hs) == \A n \in hs : ~Replicates(Decide27(n, hs, {}, {}))
-g\* a check "replicates" when it hands the replicator a task with at least one candidate node. (With overlapping
-\* rules the code as found keeps calling the replicator with an EMPTY candidate list: a holder remembered from
-\* an earlier rule does not lower the shortage of a later rule - a phantom shortage that copies nothing.)
-Replicates(d) == \E k \in 1..Len(d.tasks) : Len(d.tasks[k].nodes) > 0
-Quiet(hs) == \A n \in hs : LET d == Decide27(n, hs, {}, {}) IN ~Replicates(d) /\ d.del = "none"
-NoTasks(hs) == \A n \in hs : ~Replicates(Decide27(n, hs, {}, {}))
-e\* a check "replicates" when it hands the replicator a task with at least one candidate node. (With overlapping
-\* rules the code as found keeps calling the replicator with an EMPTY candidate list: a holder remembered from
-\* an earlier rule does not lower the shortage of a later rule - a phantom shortage that copies nothing.)
-Replicates(d) == \E k \in 1..Len(d.tasks) : Len(d.tasks[k].nodes) > 0
-Quiet(hs) == \A n \in hs : LET d == Decide27(n, hs, {}, {}) IN ~Replicates(d) /\ d.del = "none"
-NoTasks(hs) == \A n \in hs : ~Replicates(Decide27(n, hs, {}, {}))
-d\* a check "replicates" when it hands the replicator a task with at least one candidate node. (With overlapping
-\* rules the code as found keeps calling the replicator with an EMPTY candidate list: a holder remembered from
-\* an earlier rule does not lower the shortage of a later rule - a phantom shortage that copies nothing.)
-Replicates(d) == \E k \in 1..Len(d.tasks) : Len(d.tasks[k].nodes) > 0
-Quiet(hs) == \A n \in hs : LET d == Decide27(n, hs, {}, {}) IN ~Replicates(d) /\ d.del = "none"
-NoTasks(hs) == \A n \in hs : ~Replicates(Decide27(n, hs, {}, {}))
-I\* a check "replicates" when it hands the replicator a task with at least one candidate node. (With overlapping
-\* rules the code as found keeps calling the replicator with an EMPTY candidate list: a holder remembered from
-\* an earlier rule does not lower the shortage of a later rule - a phantom shortage that copies nothing.)
-Replicates(d) == \E k \in 1..Len(d.tasks) : Len(d.tasks[k].nodes) > 0
-Quiet(hs) == \A n \in hs : LET d == Decide27(n, hs, {}, {}) IN ~Replicates(d) /\ d.del = "none"
-NoTasks(hs) == \A n \in hs : ~Replicates(Decide27(n, hs, {}, {}))
-n\* a check "replicates" when it hands the replicator a task with at least one candidate node. (With overlapping
-\* rules the code as found keeps calling the replicator with an EMPTY candidate list: a holder remembered from
-\* an earlier rule does not lower the shortage of a later rule - a phantom shortage that copies nothing.)
-Replicates(d) == \E k \in 1..Len(d.tasks) : Len(d.tasks[k].nodes) > 0
-Quiet(hs) == \A n \in hs : LET d == Decide27(n, hs, {}, {}) IN ~Replicates(d) /\ d.del = "none"
-NoTasks(hs) == \A n \in hs : ~Replicates(Decide27(n, hs, {}, {}))
-T\* a check "replicates" when it hands the replicator a task with at least one candidate node. (With overlapping
-\* rules the code as found keeps calling the replicator with an EMPTY candidate list: a holder remembered from
-\* an earlier rule does not lower the shortage of a later rule - a phantom shortage that copies nothing.)
-Replicates(d) == \E k \in 1..Len(d.tasks) : Len(d.tasks[k].nodes) > 0
-Quiet(hs) == \A n \in hs : LET d == Decide27(n, hs, {}, {}) IN ~Replicates(d) /\ d.del = "none"
-NoTasks(hs) == \A n \in hs : ~Replicates(Decide27(n, hs, {}, {}))
-i\* a check "replicates" when it hands the replicator a task with at least one candidate node. (With overlapping
-\* rules the code as found keeps calling the replicator with an EMPTY candidate list: a holder remembered from
-\* an earlier rule does not lower the shortage of a later rule - a phantom shortage that copies nothing.)
-Replicates(d) == \E k \in 1..Len(d.tasks) : Len(d.tasks[k].nodes) > 0
-Quiet(hs) == \A n \in hs : LET d == Decide27(n, hs, {}, {}) IN ~Replicates(d) /\ d.del = "none"
-NoTasks(hs) == \A n \in hs : ~Replicates(Decide27(n, hs, {}, {}))
-m\* a check "replicates" when it hands the replicator a task with at least one candidate node. (With overlapping
-\* rules the code as found keeps calling the replicator with an EMPTY candidate list: a holder remembered from
-\* an earlier rule does not lower the shortage of a later rule - a phantom shortage that copies nothing.)
-Replicates(d) == \E k \in 1..Len(d.tasks) : Len(d.tasks[k].nodes) > 0
-Quiet(hs) == \A n \in hs : LET d == Decide27(n, hs, {}, {}) IN ~Replicates(d) /\ d.del = "none"
-NoTasks(hs) == \A n \in hs : ~Replicates(Decide27(n, hs, {}, {}))
-e\* a check "replicates" when it hands the replicator a task with at least one candidate node. (With overlapping
-\* rules the code as found keeps calling the replicator with an EMPTY candidate list: a holder remembered from
-\* an earlier rule does not lower the shortage of a later rule - a phantom shortage that copies nothing.)
-Replicates(d) == \E k \in 1..Len(d.tasks) : Len(d.tasks[k].nodes) > 0
-Quiet(hs) == \A n \in hs : LET d == Decide27(n, hs, {}, {}) IN ~Replicates(d) /\ d.del = "none"
-NoTasks(hs) == \A n \in hs : ~Replicates(Decide27(n, hs, {}, {}))
- \* a check "replicates" when it hands the replicator a task with at least one candidate node. (With overlapping
-\* rules the code as found keeps calling the replicator with an EMPTY candidate list: a holder remembered from
-\* an earlier rule does not lower the shortage of a later rule - a phantom shortage that copies nothing.)
-Replicates(d) == \E k \in 1..Len(d.tasks) : Len(d.tasks[k].nodes) > 0
-Quiet(hs) == \A n \in hs : LET d == Decide27(n, hs, {}, {}) IN ~Replicates(d) /\ d.del = "none"
-NoTasks(hs) == \A n \in hs : ~Replicates(Decide27(n, hs, {}, {}))
-=\* a check "replicates" when it hands the replicator a task with at least one candidate node. (With overlapping
-\* rules the code as found keeps calling the replicator with an EMPTY candidate list: a holder remembered from
-\* an earlier rule does not lower the shortage of a later rule - a phantom shortage that copies nothing.)
-Replicates(d) == \E k \in 1..Len(d.tasks) : Len(d.tasks[k].nodes) > 0
-Quiet(hs) == \A n \in hs : LET d == Decide27(n, hs, {}, {}) IN ~Replicates(d) /\ d.del = "none"
-NoTasks(hs) == \A n \in hs : ~Replicates(Decide27(n, hs, {}, {}))
-=\* a check "replicates" when it hands the replicator a task with at least one candidate node. (With overlapping
-\* rules the code as found keeps calling the replicator with an EMPTY candidate list: a holder remembered from
-\* an earlier rule does not lower the shortage of a later rule - a phantom shortage that copies nothing.)
-Replicates(d) == \E k \in 1..Len(d.tasks) : Len(d.tasks[k].nodes) > 0
-Quiet(hs) == \A n \in hs : LET d == Decide27(n, hs, {}, {}) IN ~Replicates(d) /\ d.del = "none"
-NoTasks(hs) == \A n \in hs : ~Replicates(Decide27(n, hs, {}, {}))
- \* a check "replicates" when it hands the replicator a task with at least one candidate node. (With overlapping
-\* rules the code as found keeps calling the replicator with an EMPTY candidate list: a holder remembered from
-\* an earlier rule does not lower the shortage of a later rule - a phantom shortage that copies nothing.)
-Replicates(d) == \E k \in 1..Len(d.tasks) : Len(d.tasks[k].nodes) > 0
-Quiet(hs) == \A n \in hs : LET d == Decide27(n, hs, {}, {}) IN ~Replicates(d) /\ d.del = "none"
-NoTasks(hs) == \A n \in hs : ~Replicates(Decide27(n, hs, {}, {}))
-r\* a check "replicates" when it hands the replicator a task with at least one candidate node. (With overlapping
-\* rules the code as found keeps calling the replicator with an EMPTY candidate list: a holder remembered from
-\* an earlier rule does not lower the shortage of a later rule - a phantom shortage that copies nothing.)
-Replicates(d) == \E k \in 1..Len(d.tasks) : Len(d.tasks[k].nodes) > 0
-Quiet(hs) == \A n \in hs : LET d == Decide27(n, hs, {}, {}) IN ~Replicates(d) /\ d.del = "none"
-NoTasks(hs) == \A n \in hs : ~Replicates(Decide27(n, hs, {}, {}))
-o\* a check "replicates" when it hands the replicator a task with at least one candidate node. (With overlapping
-\* rules the code as found keeps calling the replicator with an EMPTY candidate list: a holder remembered from
-\* an earlier rule does not lower the shortage of a later rule - a phantom shortage that copies nothing.)
-Replicates(d) == \E k \in 1..Len(d.tasks) : Len(d.tasks[k].nodes) > 0
-Quiet(hs) == \A n \in hs : LET d == Decide27(n, hs, {}, {}) IN ~Replicates(d) /\ d.del = "none"
-NoTasks(hs) == \A n \in hs : ~Replicates(Decide27(n, hs, {}, {}))
-u\* a check "replicates" when it hands the replicator a task with at least one candidate node. (With overlapping
-\* rules the code as found keeps calling the replicator with an EMPTY candidate list: a holder remembered from
-\* an earlier rule does not lower the shortage of a later rule - a phantom shortage that copies nothing.)
-Replicates(d) == \E k \in 1..Len(d.tasks) : Len(d.tasks[k].nodes) > 0
-Quiet(hs) == \A n \in hs : LET d == Decide27(n, hs, {}, {}) IN ~Replicates(d) /\ d.del = "none"
-NoTasks(hs) == \A n \in hs : ~Replicates(Decide27(n, hs, {}, {}))
-n\* a check "replicates" when it hands the replicator a task with at least one candidate node. (With overlapping
-\* rules the code as found keeps calling the replicator with an EMPTY candidate list: a holder remembered from
-\* an earlier rule does not lower the shortage of a later rule - a phantom shortage that copies nothing.)
-Replicates(d) == \E k \in 1..Len(d.tasks) : Len(d.tasks[k].nodes) > 0
-Quiet(hs) == \A n \in hs : LET d == Decide27(n, hs, {}, {}) IN ~Replicates(d) /\ d.del = "none"
-NoTasks(hs) == \A n \in hs : ~Replicates(Decide27(n, hs, {}, {}))
-d\* a check "replicates" when it hands the replicator a task with at least one candidate node. (With overlapping
-\* rules the code as found keeps calling the replicator with an EMPTY candidate list: a holder remembered from
-\* an earlier rule does not lower the shortage of a later rule - a phantom shortage that copies nothing.)
-Replicates(d) == \E k \in 1..Len(d.tasks) : Len(d.tasks[k].nodes) > 0
-Quiet(hs) == \A n \in hs : LET d == Decide27(n, hs, {}, {}) IN ~Replicates(d) /\ d.del = "none"
-NoTasks(hs) == \A n \in hs : ~Replicates(Decide27(n, hs, {}, {}))
- \* a check "replicates" when it hands the replicator a task with at least one candidate node. (With overlapping
-\* rules the code as found keeps calling the replicator with an EMPTY candidate list: a holder remembered from
-\* an earlier rule does not lower the shortage of a later rule - a phantom shortage that copies nothing.)
-Replicates(d) == \E k \in 1..Len(d.tasks) : Len(d.tasks[k].nodes) > 0
-Quiet(hs) == \A n \in hs : LET d == Decide27(n, hs, {}, {}) IN ~Replicates(d) /\ d.del = "none"
-NoTasks(hs) == \A n \in hs : ~Replicates(Decide27(n, hs, {}, {}))
->\* a check "replicates" when it hands the replicator a task with at least one candidate node. (With overlapping
-\* rules the code as found keeps calling the replicator with an EMPTY candidate list: a holder remembered from
-\* an earlier rule does not lower the shortage of a later rule - a phantom shortage that copies nothing.)
-Replicates(d) == \E k \in 1..Len(d.tasks) : Len(d.tasks[k].nodes) > 0
-Quiet(hs) == \A n \in hs : LET d == Decide27(n, hs, {}, {}) IN ~Replicates(d) /\ d.del = "none"
-NoTasks(hs) == \A n \in hs : ~Replicates(Decide27(n, hs, {}, {}))
-=\* a check "replicates" when it hands the replicator a task with at least one candidate node. (With overlapping
-\* rules the code as found keeps calling the replicator with an EMPTY candidate list: a holder remembered from
-\* an earlier rule does not lower the shortage of a later rule - a phantom shortage that copies nothing.)
-Replicates(d) == \E k \in 1..Len(d.tasks) : Len(d.tasks[k].nodes) > 0
-Quiet(hs) == \A n \in hs : LET d == Decide27(n, hs, {}, {}) IN ~Replicates(d) /\ d.del = "none"
-NoTasks(hs) == \A n \in hs : ~Replicates(Decide27(n, hs, {}, {}))
- \* a check "replicates" when it hands the replicator a task with at least one candidate node. (With overlapping
-\* rules the code as found keeps calling the replicator with an EMPTY candidate list: a holder remembered from
-\* an earlier rule does not lower the shortage of a later rule - a phantom shortage that copies nothing.)
-Replicates(d) == \E k \in 1..Len(d.tasks) : Len(d.tasks[k].nodes) > 0
-Quiet(hs) == \A n \in hs : LET d == Decide27(n, hs, {}, {}) IN ~Replicates(d) /\ d.del = "none"
-NoTasks(hs) == \A n \in hs : ~Replicates(Decide27(n, hs, {}, {}))
-M\* a check "replicates" when it hands the replicator a task with at least one candidate node. (With overlapping
-\* rules the code as found keeps calling the replicator with an EMPTY candidate list: a holder remembered from
-\* an earlier rule does not lower the shortage of a later rule - a phantom shortage that copies nothing.)
-Replicates(d) == \E k \in 1..Len(d.tasks) : Len(d.tasks[k].nodes) > 0
-Quiet(hs) == \A n \in hs : LET d == Decide27(n, hs, {}, {}) IN ~Replicates(d) /\ d.del = "none"
-NoTasks(hs) == \A n \in hs : ~Replicates(Decide27(n, hs, {}, {}))
-a\* a check "replicates" when it hands the replicator a task with at least one candidate node. (With overlapping
-\* rules the code as found keeps calling the replicator with an EMPTY candidate list: a holder remembered from
-\* an earlier rule does not lower the shortage of a later rule - a phantom shortage that copies nothing.)
-Replicates(d) == \E k \in 1..Len(d.tasks) : Len(d.tasks[k].nodes) > 0
-Quiet(hs) == \A n \in hs : LET d == Decide27(n, hs, {}, {}) IN ~Replicates(d) /\ d.del = "none"
-NoTasks(hs) == \A n \in hs : ~Replicates(Decide27(n, hs, {}, {}))
-x\* a check "replicates" when it hands the replicator a task with at least one candidate node. (With overlapping
-\* rules the code as found keeps calling the replicator with an EMPTY candidate list: a holder remembered from
-\* an earlier rule does not lower the shortage of a later rule - a phantom shortage that copies nothing.)
-Replicates(d) == \E k \in 1..Len(d.tasks) : Len(d.tasks[k].nodes) > 0
-Quiet(hs) == \A n \in hs : LET d == Decide27(n, hs, {}, {}) IN ~Replicates(d) /\ d.del = "none"
-NoTasks(hs) == \A n \in hs : ~Replicates(Decide27(n, hs, {}, {}))
-R\* a check "replicates" when it hands the replicator a task with at least one candidate node. (With overlapping
-\* rules the code as found keeps calling the replicator with an EMPTY candidate list: a holder remembered from
-\* an earlier rule does not lower the shortage of a later rule - a phantom shortage that copies nothing.)
-Replicates(d) == \E k \in 1..Len(d.tasks) : Len(d.tasks[k].nodes) > 0
-Quiet(hs) == \A n \in hs : LET d == Decide27(n, hs, {}, {}) IN ~Replicates(d) /\ d.del = "none"
-NoTasks(hs) == \A n \in hs : ~Replicates(Decide27(n, hs, {}, {}))
-o\* a check "replicates" when it hands the replicator a task with at least one candidate node. (With overlapping
-\* rules the code as found keeps calling the replicator with an EMPTY candidate list: a holder remembered from
-\* an earlier rule does not lower the shortage of a later rule - a phantom shortage that copies nothing.)
-Replicates(d) == \E k \in 1..Len(d.tasks) : Len(d.tasks[k].nodes) > 0
-Quiet(hs) == \A n \in hs : LET d == Decide27(n, hs, {}, {}) IN ~Replicates(d) /\ d.del = "none"
-NoTasks(hs) == \A n \in hs : ~Replicates(Decide27(n, hs, {}, {}))
-u\* a check "replicates" when it hands the replicator a task with at least one candidate node. (With overlapping
-\* rules the code as found keeps calling the replicator with an EMPTY candidate list: a holder remembered from
-\* an earlier rule does not lower the shortage of a later rule - a phantom shortage that copies nothing.)
-Replicates(d) == \E k \in 1..Len(d.tasks) : Len(d.tasks[k].nodes) > 0
-Quiet(hs) == \A n \in hs : LET d == Decide27(n, hs, {}, {}) IN ~Replicates(d) /\ d.del = "none"
-NoTasks(hs) == \A n \in hs : ~Replicates(Decide27(n, hs, {}, {}))
-n\* a check "replicates" when it hands the replicator a task with at least one candidate node. (With overlapping
-\* rules the code as found keeps calling the replicator with an EMPTY candidate list: a holder remembered from
-\* an earlier rule does not lower the shortage of a later rule - a phantom shortage that copies nothing.)
-Replicates(d) == \E k \in 1..Len(d.tasks) : Len(d.tasks[k].nodes) > 0
-Quiet(hs) == \A n \in hs : LET d == Decide27(n, hs, {}, {}) IN ~Replicates(d) /\ d.del = "none"
-NoTasks(hs) == \A n \in hs : ~Replicates(Decide27(n, hs, {}, {}))
-d\* a check "replicates" when it hands the replicator a task with at least one candidate node. (With overlapping
-\* rules the code as found keeps calling the replicator with an EMPTY candidate list: a holder remembered from
-\* an earlier rule does not lower the shortage of a later rule - a phantom shortage that copies nothing.)
-Replicates(d) == \E k \in 1..Len(d.tasks) : Len(d.tasks[k].nodes) > 0
-Quiet(hs) == \A n \in hs : LET d == Decide27(n, hs, {}, {}) IN ~Replicates(d) /\ d.del = "none"
-NoTasks(hs) == \A n \in hs : ~Replicates(Decide27(n, hs, {}, {}))
-s\* a check "replicates" when it hands the replicator a task with at least one candidate node. (With overlapping
-\* rules the code as found keeps calling the replicator with an EMPTY candidate list: a holder remembered from
-\* an earlier rule does not lower the shortage of a later rule - a phantom shortage that copies nothing.)
-Replicates(d) == \E k \in 1..Len(d.tasks) : Len(d.tasks[k].nodes) > 0
-Quiet(hs) == \A n \in hs : LET d == Decide27(n, hs, {}, {}) IN ~Replicates(d) /\ d.del = "none"
-NoTasks(hs) == \A n \in hs : ~Replicates(Decide27(n, hs, {}, {}))
- \* a check "replicates" when it hands the replicator a task with at least one candidate node. (With overlapping
-\* rules the code as found keeps calling the replicator with an EMPTY candidate list: a holder remembered from
-\* an earlier rule does not lower the shortage of a later rule - a phantom shortage that copies nothing.)
-Replicates(d) == \E k \in 1..Len(d.tasks) : Len(d.tasks[k].nodes) > 0
-Quiet(hs) == \A n \in hs : LET d == Decide27(n, hs, {}, {}) IN ~Replicates(d) /\ d.del = "none"
-NoTasks(hs) == \A n \in hs : ~Replicates(Decide27(n, hs, {}, {}))
-=\* a check "replicates" when it hands the replicator a task with at least one candidate node. (With overlapping
-\* rules the code as found keeps calling the replicator with an EMPTY candidate list: a holder remembered from
-\* an earlier rule does not lower the shortage of a later rule - a phantom shortage that copies nothing.)
-Replicates(d) == \E k \in 1..Len(d.tasks) : Len(d.tasks[k].nodes) > 0
-Quiet(hs) == \A n \in hs : LET d == Decide27(n, hs, {}, {}) IN ~Replicates(d) /\ d.del = "none"
-NoTasks(hs) == \A n \in hs : ~Replicates(Decide27(n, hs, {}, {}))
->\* a check "replicates" when it hands the replicator a task with at least one candidate node. (With overlapping
-\* rules the code as found keeps calling the replicator with an EMPTY candidate list: a holder remembered from
-\* an earlier rule does not lower the shortage of a later rule - a phantom shortage that copies nothing.)
-Replicates(d) == \E k \in 1..Len(d.tasks) : Len(d.tasks[k].nodes) > 0
-Quiet(hs) == \A n \in hs : LET d == Decide27(n, hs, {}, {}) IN ~Replicates(d) /\ d.del = "none"
-NoTasks(hs) == \A n \in hs : ~Replicates(Decide27(n, hs, {}, {}))
- \* a check "replicates" when it hands the replicator a task with at least one candidate node. (With overlapping
-\* rules the code as found keeps calling the replicator with an EMPTY candidate list: a holder remembered from
-\* an earlier rule does not lower the shortage of a later rule - a phantom shortage that copies nothing.)
-Replicates(d) == \E k \in 1..Len(d.tasks) : Len(d.tasks[k].nodes) > 0
-Quiet(hs) == \A n \in hs : LET d == Decide27(n, hs, {}, {}) IN ~Replicates(d) /\ d.del = "none"
-NoTasks(hs) == \A n \in hs : ~Replicates(Decide27(n, hs, {}, {}))
-C\* a check "replicates" when it hands the replicator a task with at least one candidate node. (With overlapping
-\* rules the code as found keeps calling the replicator with an EMPTY candidate list: a holder remembered from
-\* an earlier rule does not lower the shortage of a later rule - a phantom shortage that copies nothing.)
-Replicates(d) == \E k \in 1..Len(d.tasks) : Len(d.tasks[k].nodes) > 0
-Quiet(hs) == \A n \in hs : LET d == Decide27(n, hs, {}, {}) IN ~Replicates(d) /\ d.del = "none"
-NoTasks(hs) == \A n \in hs : ~Replicates(Decide27(n, hs, {}, {}))
-o\* a check "replicates" when it hands the replicator a task with at least one candidate node. (With overlapping
-\* rules the code as found keeps calling the replicator with an EMPTY candidate list: a holder remembered from
-\* an earlier rule does not lower the shortage of a later rule - a phantom shortage that copies nothing.)
-Replicates(d) == \E k \in 1..Len(d.tasks) : Len(d.tasks[k].nodes) > 0
-Quiet(hs) == \A n \in hs : LET d == Decide27(n, hs, {}, {}) IN ~Replicates(d) /\ d.del = "none"
-NoTasks(hs) == \A n \in hs : ~Replicates(Decide27(n, hs, {}, {}))
-n\* a check "replicates" when it hands the replicator a task with at least one candidate node. (With overlapping
-\* rules the code as found keeps calling the replicator with an EMPTY candidate list: a holder remembered from
-\* an earlier rule does not lower the shortage of a later rule - a phantom shortage that copies nothing.)
-Replicates(d) == \E k \in 1..Len(d.tasks) : Len(d.tasks[k].nodes) > 0
-Quiet(hs) == \A n \in hs : LET d == Decide27(n, hs, {}, {}) IN ~Replicates(d) /\ d.del = "none"
-NoTasks(hs) == \A n \in hs : ~Replicates(Decide27(n, hs, {}, {}))
-v\* a check "replicates" when it hands the replicator a task with at least one candidate node. (With overlapping
-\* rules the code as found keeps calling the replicator with an EMPTY candidate list: a holder remembered from
-\* an earlier rule does not lower the shortage of a later rule - a phantom shortage that copies nothing.)
-Replicates(d) == \E k \in 1..Len(d.tasks) : Len(d.tasks[k].nodes) > 0
-Quiet(hs) == \A n \in hs : LET d == Decide27(n, hs, {}, {}) IN ~Replicates(d) /\ d.del = "none"
-NoTasks(hs) == \A n \in hs : ~Replicates(Decide27(n, hs, {}, {}))
-e\* a check "replicates" when it hands the replicator a task with at least one candidate node. (With overlapping
-\* rules the code as found keeps calling the replicator with an EMPTY candidate list: a holder remembered from
-\* an earlier rule does not lower the shortage of a later rule - a phantom shortage that copies nothing.)
-Replicates(d) == \E k \in 1..Len(d.tasks) : Len(d.tasks[k].nodes) > 0
-Quiet(hs) == \A n \in hs : LET d == Decide27(n, hs, {}, {}) IN ~Replicates(d) /\ d.del = "none"
-NoTasks(hs) == \A n \in hs : ~Replicates(Decide27(n, hs, {}, {}))
-r\* a check "replicates" when it hands the replicator a task with at least one candidate node. (With overlapping
-\* rules the code as found keeps calling the replicator with an EMPTY candidate list: a holder remembered from
-\* an earlier rule does not lower the shortage of a later rule - a phantom shortage that copies nothing.)
-Replicates(d) == \E k \in 1..Len(d.tasks) : Len(d.tasks[k].nodes) > 0
-Quiet(hs) == \A n \in hs : LET d == Decide27(n, hs, {}, {}) IN ~Replicates(d) /\ d.del = "none"
-NoTasks(hs) == \A n \in hs : ~Replicates(Decide27(n, hs, {}, {}))
-g\* a check "replicates" when it hands the replicator a task with at least one candidate node. (With overlapping
-\* rules the code as found keeps calling the replicator with an EMPTY candidate list: a holder remembered from
-\* an earlier rule does not lower the shortage of a later rule - a phantom shortage that copies nothing.)
-Replicates(d) == \E k \in 1..Len(d.tasks) : Len(d.tasks[k].nodes) > 0
-Quiet(hs) == \A n \in hs : LET d == Decide27(n, hs, {}, {}) IN ~Replicates(d) /\ d.del = "none"
-NoTasks(hs) == \A n \in hs : ~Replicates(Decide27(n, hs, {}, {}))
-e\* a check "replicates" when it hands the replicator a task with at least one candidate node. (With overlapping
-\* rules the code as found keeps calling the replicator with an EMPTY candidate list: a holder remembered from
-\* an earlier rule does not lower the shortage of a later rule - a phantom shortage that copies nothing.)
-Replicates(d) == \E k \in 1..Len(d.tasks) : Len(d.tasks[k].nodes) > 0
-Quiet(hs) == \A n \in hs : LET d == Decide27(n, hs, {}, {}) IN ~Replicates(d) /\ d.del = "none"
-NoTasks(hs) == \A n \in hs : ~Replicates(Decide27(n, hs, {}, {}))
-d\* a check "replicates" when it hands the replicator a task with at least one candidate node. (With overlapping
-\* rules the code as found keeps calling the replicator with an EMPTY candidate list: a holder remembered from
-\* an earlier rule does not lower the shortage of a later rule - a phantom shortage that copies nothing.)
-Replicates(d) == \E k \in 1..Len(d.tasks) : Len(d.tasks[k].nodes) > 0
-Quiet(hs) == \A n \in hs : LET d == Decide27(n, hs, {}, {}) IN ~Replicates(d) /\ d.del = "none"
-NoTasks(hs) == \A n \in hs : ~Replicates(Decide27(n, hs, {}, {}))
- \* a check "replicates" when it hands the replicator a task with at least one candidate node. (With overlapping
-\* rules the code as found keeps calling the replicator with an EMPTY candidate list: a holder remembered from
-\* an earlier rule does not lower the shortage of a later rule - a phantom shortage that copies nothing.)
-Replicates(d) == \E k \in 1..Len(d.tasks) : Len(d.tasks[k].nodes) > 0
-Quiet(hs) == \A n \in hs : LET d == Decide27(n, hs, {}, {}) IN ~Replicates(d) /\ d.del = "none"
-NoTasks(hs) == \A n \in hs : ~Replicates(Decide27(n, hs, {}, {}))
-/\* a check "replicates" when it hands the replicator a task with at least one candidate node. (With overlapping
-\* rules the code as found keeps calling the replicator with an EMPTY candidate list: a holder remembered from
-\* an earlier rule does not lower the shortage of a later rule - a phantom shortage that copies nothing.)
-Replicates(d) == \E k \in 1..Len(d.tasks) : Len(d.tasks[k].nodes) > 0
-Quiet(hs) == \A n \in hs : LET d == Decide27(n, hs, {}, {}) IN ~Replicates(d) /\ d.del = "none"
-NoTasks(hs) == \A n \in hs : ~Replicates(Decide27(n, hs, {}, {}))
-\\* a check "replicates" when it hands the replicator a task with at least one candidate node. (With overlapping
-\* rules the code as found keeps calling the replicator with an EMPTY candidate list: a holder remembered from
-\* an earlier rule does not lower the shortage of a later rule - a phantom shortage that copies nothing.)
-Replicates(d) == \E k \in 1..Len(d.tasks) : Len(d.tasks[k].nodes) > 0
-Quiet(hs) == \A n \in hs : LET d == Decide27(n, hs, {}, {}) IN ~Replicates(d) /\ d.del = "none"
-NoTasks(hs) == \A n \in hs : ~Replicates(Decide27(n, hs, {}, {}))
- \* a check "replicates" when it hands the replicator a task with at least one candidate node. (With overlapping
-\* rules the code as found keeps calling the replicator with an EMPTY candidate list: a holder remembered from
-\* an earlier rule does not lower the shortage of a later rule - a phantom shortage that copies nothing.)
-Replicates(d) == \E k \in 1..Len(d.tasks) : Len(d.tasks[k].nodes) > 0
-Quiet(hs) == \A n \in hs : LET d == Decide27(n, hs, {}, {}) IN ~Replicates(d) /\ d.del = "none"
-NoTasks(hs) == \A n \in hs : ~Replicates(Decide27(n, hs, {}, {}))
-Q\* a check "replicates" when it hands the replicator a task with at least one candidate node. (With overlapping
-\* rules the code as found keeps calling the replicator with an EMPTY candidate list: a holder remembered from
-\* an earlier rule does not lower the shortage of a later rule - a phantom shortage that copies nothing.)
-Replicates(d) == \E k \in 1..Len(d.tasks) : Len(d.tasks[k].nodes) > 0
-Quiet(hs) == \A n \in hs : LET d == Decide27(n, hs, {}, {}) IN ~Replicates(d) /\ d.del = "none"
-NoTasks(hs) == \A n \in hs : ~Replicates(Decide27(n, hs, {}, {}))
-u\* a check "replicates" when it hands the replicator a task with at least one candidate node. (With overlapping
-\* rules the code as found keeps calling the replicator with an EMPTY candidate list: a holder remembered from
-\* an earlier rule does not lower the shortage of a later rule - a phantom shortage that copies nothing.)
-Replicates(d) == \E k \in 1..Len(d.tasks) : Len(d.tasks[k].nodes) > 0
-Quiet(hs) == \A n \in hs : LET d == Decide27(n, hs, {}, {}) IN ~Replicates(d) /\ d.del = "none"
-NoTasks(hs) == \A n \in hs : ~Replicates(Decide27(n, hs, {}, {}))
-i\* a check "replicates" when it hands the replicator a task with at least one candidate node. (With overlapping
-\* rules the code as found keeps calling the replicator with an EMPTY candidate list: a holder remembered from
-\* an earlier rule does not lower the shortage of a later rule - a phantom shortage that copies nothing.)
-Replicates(d) == \E k \in 1..Len(d.tasks) : Len(d.tasks[k].nodes) > 0
-Quiet(hs) == \A n \in hs : LET d == Decide27(n, hs, {}, {}) IN ~Replicates(d) /\ d.del = "none"
-NoTasks(hs) == \A n \in hs : ~Replicates(Decide27(n, hs, {}, {}))
-e\* a check "replicates" when it hands the replicator a task with at least one candidate node. (With overlapping
-\* rules the code as found keeps calling the replicator with an EMPTY candidate list: a holder remembered from
-\* an earlier rule does not lower the shortage of a later rule - a phantom shortage that copies nothing.)
-Replicates(d) == \E k \in 1..Len(d.tasks) : Len(d.tasks[k].nodes) > 0
-Quiet(hs) == \A n \in hs : LET d == Decide27(n, hs, {}, {}) IN ~Replicates(d) /\ d.del = "none"
-NoTasks(hs) == \A n \in hs : ~Replicates(Decide27(n, hs, {}, {}))
-t\* a check "replicates" when it hands the replicator a task with at least one candidate node. (With overlapping
-\* rules the code as found keeps calling the replicator with an EMPTY candidate list: a holder remembered from
-\* an earlier rule does not lower the shortage of a later rule - a phantom shortage that copies nothing.)
-Replicates(d) == \E k \in 1..Len(d.tasks) : Len(d.tasks[k].nodes) > 0
-Quiet(hs) == \A n \in hs : LET d == Decide27(n, hs, {}, {}) IN ~Replicates(d) /\ d.del = "none"
-NoTasks(hs) == \A n \in hs : ~Replicates(Decide27(n, hs, {}, {}))
-(\* a check "replicates" when it hands the replicator a task with at least one candidate node. (With overlapping
-\* rules the code as found keeps calling the replicator with an EMPTY candidate list: a holder remembered from
-\* an earlier rule does not lower the shortage of a later rule - a phantom shortage that copies nothing.)
-Replicates(d) == \E k \in 1..Len(d.tasks) : Len(d.tasks[k].nodes) > 0
-Quiet(hs) == \A n \in hs : LET d == Decide27(n, hs, {}, {}) IN ~Replicates(d) /\ d.del = "none"
-NoTasks(hs) == \A n \in hs : ~Replicates(Decide27(n, hs, {}, {}))
-h\* a check "replicates" when it hands the replicator a task with at least one candidate node. (With overlapping
-\* rules the code as found keeps calling the replicator with an EMPTY candidate list: a holder remembered from
-\* an earlier rule does not lower the shortage of a later rule - a phantom shortage that copies nothing.)
-Replicates(d) == \E k \in 1..Len(d.tasks) : Len(d.tasks[k].nodes) > 0
-Quiet(hs) == \A n \in hs : LET d == Decide27(n, hs, {}, {}) IN ~Replicates(d) /\ d.del = "none"
-NoTasks(hs) == \A n \in hs : ~Replicates(Decide27(n, hs, {}, {}))
-o\* a check "replicates" when it hands the replicator a task with at least one candidate node. (With overlapping
-\* rules the code as found keeps calling the replicator with an EMPTY candidate list: a holder remembered from
-\* an earlier rule does not lower the shortage of a later rule - a phantom shortage that copies nothing.)
-Replicates(d) == \E k \in 1..Len(d.tasks) : Len(d.tasks[k].nodes) > 0
-Quiet(hs) == \A n \in hs : LET d == Decide27(n, hs, {}, {}) IN ~Replicates(d) /\ d.del = "none"
-NoTasks(hs) == \A n \in hs : ~Replicates(Decide27(n, hs, {}, {}))
-l\* a check "replicates" when it hands the replicator a task with at least one candidate node. (With overlapping
-\* rules the code as found keeps calling the replicator with an EMPTY candidate list: a holder remembered from
-\* an earlier rule does not lower the shortage of a later rule - a phantom shortage that copies nothing.)
-Replicates(d) == \E k \in 1..Len(d.tasks) : Len(d.tasks[k].nodes) > 0
-Quiet(hs) == \A n \in hs : LET d == Decide27(n, hs, {}, {}) IN ~Replicates(d) /\ d.del = "none"
-NoTasks(hs) == \A n \in hs : ~Replicates(Decide27(n, hs, {}, {}))
-d\* a check "replicates" when it hands the replicator a task with at least one candidate node. (With overlapping
-\* rules the code as found keeps calling the replicator with an EMPTY candidate list: a holder remembered from
-\* an earlier rule does not lower the shortage of a later rule - a phantom shortage that copies nothing.)
-Replicates(d) == \E k \in 1..Len(d.tasks) : Len(d.tasks[k].nodes) > 0
-Quiet(hs) == \A n \in hs : LET d == Decide27(n, hs, {}, {}) IN ~Replicates(d) /\ d.del = "none"
-NoTasks(hs) == \A n \in hs : ~Replicates(Decide27(n, hs, {}, {}))
-e\* a check "replicates" when it hands the replicator a task with at least one candidate node. (With overlapping
-\* rules the code as found keeps calling the replicator with an EMPTY candidate list: a holder remembered from
-\* an earlier rule does not lower the shortage of a later rule - a phantom shortage that copies nothing.)
-Replicates(d) == \E k \in 1..Len(d.tasks) : Len(d.tasks[k].nodes) > 0
-Quiet(hs) == \A n \in hs : LET d == Decide27(n, hs, {}, {}) IN ~Replicates(d) /\ d.del = "none"
-NoTasks(hs) == \A n \in hs : ~Replicates(Decide27(n, hs, {}, {}))
-r\* a check "replicates" when it hands the replicator a task with at least one candidate node. (With overlapping
-\* rules the code as found keeps calling the replicator with an EMPTY candidate list: a holder remembered from
-\* an earlier rule does not lower the shortage of a later rule - a phantom shortage that copies nothing.)
-Replicates(d) == \E k \in 1..Len(d.tasks) : Len(d.tasks[k].nodes) > 0
-Quiet(hs) == \A n \in hs : LET d == Decide27(n, hs, {}, {}) IN ~Replicates(d) /\ d.del = "none"
-NoTasks(hs) == \A n \in hs : ~Replicates(Decide27(n, hs, {}, {}))
-s\* a check "replicates" when it hands the replicator a task with at least one candidate node. (With overlapping
-\* rules the code as found keeps calling the replicator with an EMPTY candidate list: a holder remembered from
-\* an earlier rule does not lower the shortage of a later rule - a phantom shortage that copies nothing.)
-Replicates(d) == \E k \in 1..Len(d.tasks) : Len(d.tasks[k].nodes) > 0
-Quiet(hs) == \A n \in hs : LET d == Decide27(n, hs, {}, {}) IN ~Replicates(d) /\ d.del = "none"
-NoTasks(hs) == \A n \in hs : ~Replicates(Decide27(n, hs, {}, {}))
-)\* a check "replicates" when it hands the replicator a task with at least one candidate node. (With overlapping
-\* rules the code as found keeps calling the replicator with an EMPTY candidate list: a holder remembered from
-\* an earlier rule does not lower the shortage of a later rule - a phantom shortage that copies nothing.)
-Replicates(d) == \E k \in 1..Len(d.tasks) : Len(d.tasks[k].nodes) > 0
-Quiet(hs) == \A n \in hs : LET d == Decide27(n, hs, {}, {}) IN ~Replicates(d) /\ d.del = "none"
-NoTasks(hs) == \A n \in hs : ~Replicates(Decide27(n, hs, {}, {}))
-
-\* a check "replicates" when it hands the replicator a task with at least one candidate node. (With overlapping
-\* rules the code as found keeps calling the replicator with an EMPTY candidate list: a holder remembered from
-\* an earlier rule does not lower the shortage of a later rule - a phantom shortage that copies nothing.)
-Replicates(d) == \E k \in 1..Len(d.tasks) : Len(d.tasks[k].nodes) > 0
-Quiet(hs) == \A n \in hs : LET d == Decide27(n, hs, {}, {}) IN ~Replicates(d) /\ d.del = "none"
-NoTasks(hs) == \A n \in hs : ~Replicates(Decide27(n, hs, {}, {}))
-\\* a check "replicates" when it hands the replicator a task with at least one candidate node. (With overlapping
-\* rules the code as found keeps calling the replicator with an EMPTY candidate list: a holder remembered from
-\* an earlier rule does not lower the shortage of a later rule - a phantom shortage that copies nothing.)
-Replicates(d) == \E k \in 1..Len(d.tasks) : Len(d.tasks[k].nodes) > 0
-Quiet(hs) == \A n \in hs : LET d == Decide27(n, hs, {}, {}) IN ~Replicates(d) /\ d.del = "none"
-NoTasks(hs) == \A n \in hs : ~Replicates(Decide27(n, hs, {}, {}))
-*\* a check "replicates" when it hands the replicator a task with at least one candidate node. (With overlapping
-\* rules the code as found keeps calling the replicator with an EMPTY candidate list: a holder remembered from
-\* an earlier rule does not lower the shortage of a later rule - a phantom shortage that copies nothing.)
-Replicates(d) == \E k \in 1..Len(d.tasks) : Len(d.tasks[k].nodes) > 0
-Quiet(hs) == \A n \in hs : LET d == Decide27(n, hs, {}, {}) IN ~Replicates(d) /\ d.del = "none"
-NoTasks(hs) == \A n \in hs : ~Replicates(Decide27(n, hs, {}, {}))
- \* a check "replicates" when it hands the replicator a task with at least one candidate node. (With overlapping
-\* rules the code as found keeps calling the replicator with an EMPTY candidate list: a holder remembered from
-\* an earlier rule does not lower the shortage of a later rule - a phantom shortage that copies nothing.)
-Replicates(d) == \E k \in 1..Len(d.tasks) : Len(d.tasks[k].nodes) > 0
-Quiet(hs) == \A n \in hs : LET d == Decide27(n, hs, {}, {}) IN ~Replicates(d) /\ d.del = "none"
-NoTasks(hs) == \A n \in hs : ~Replicates(Decide27(n, hs, {}, {}))
-c\* a check "replicates" when it hands the replicator a task with at least one candidate node. (With overlapping
-\* rules the code as found keeps calling the replicator with an EMPTY candidate list: a holder remembered from
-\* an earlier rule does not lower the shortage of a later rule - a phantom shortage that copies nothing.)
-Replicates(d) == \E k \in 1..Len(d.tasks) : Len(d.tasks[k].nodes) > 0
-Quiet(hs) == \A n \in hs : LET d == Decide27(n, hs, {}, {}) IN ~Replicates(d) /\ d.del = "none"
-NoTasks(hs) == \A n \in hs : ~Replicates(Decide27(n, hs, {}, {}))
-o\* a check "replicates" when it hands the replicator a task with at least one candidate node. (With overlapping
-\* rules the code as found keeps calling the replicator with an EMPTY candidate list: a holder remembered from
-\* an earlier rule does not lower the shortage of a later rule - a phantom shortage that copies nothing.)
-Replicates(d) == \E k \in 1..Len(d.tasks) : Len(d.tasks[k].nodes) > 0
-Quiet(hs) == \A n \in hs : LET d == Decide27(n, hs, {}, {}) IN ~Replicates(d) /\ d.del = "none"
-NoTasks(hs) == \A n \in hs : ~Replicates(Decide27(n, hs, {}, {}))
-p\* a check "replicates" when it hands the replicator a task with at least one candidate node. (With overlapping
-\* rules the code as found keeps calling the replicator with an EMPTY candidate list: a holder remembered from
-\* an earlier rule does not lower the shortage of a later rule - a phantom shortage that copies nothing.)
-Replicates(d) == \E k \in 1..Len(d.tasks) : Len(d.tasks[k].nodes) > 0
-Quiet(hs) == \A n \in hs : LET d == Decide27(n, hs, {}, {}) IN ~Replicates(d) /\ d.del = "none"
-NoTasks(hs) == \A n \in hs : ~Replicates(Decide27(n, hs, {}, {}))
-i\* a check "replicates" when it hands the replicator a task with at least one candidate node. (With overlapping
-\* rules the code as found keeps calling the replicator with an EMPTY candidate list: a holder remembered from
-\* an earlier rule does not lower the shortage of a later rule - a phantom shortage that copies nothing.)
-Replicates(d) == \E k \in 1..Len(d.tasks) : Len(d.tasks[k].nodes) > 0
-Quiet(hs) == \A n \in hs : LET d == Decide27(n, hs, {}, {}) IN ~Replicates(d) /\ d.del = "none"
-NoTasks(hs) == \A n \in hs : ~Replicates(Decide27(n, hs, {}, {}))
-e\* a check "replicates" when it hands the replicator a task with at least one candidate node. (With overlapping
-\* rules the code as found keeps calling the replicator with an EMPTY candidate list: a holder remembered from
-\* an earlier rule does not lower the shortage of a later rule - a phantom shortage that copies nothing.)
-Replicates(d) == \E k \in 1..Len(d.tasks) : Len(d.tasks[k].nodes) > 0
-Quiet(hs) == \A n \in hs : LET d == Decide27(n, hs, {}, {}) IN ~Replicates(d) /\ d.del = "none"
-NoTasks(hs) == \A n \in hs : ~Replicates(Decide27(n, hs, {}, {}))
-s\* a check "replicates" when it hands the replicator a task with at least one candidate node. (With overlapping
-\* rules the code as found keeps calling the replicator with an EMPTY candidate list: a holder remembered from
-\* an earlier rule does not lower the shortage of a later rule - a phantom shortage that copies nothing.)
-Replicates(d) == \E k \in 1..Len(d.tasks) : Len(d.tasks[k].nodes) > 0
-Quiet(hs) == \A n \in hs : LET d == Decide27(n, hs, {}, {}) IN ~Replicates(d) /\ d.del = "none"
-NoTasks(hs) == \A n \in hs : ~Replicates(Decide27(n, hs, {}, {}))
- \* a check "replicates" when it hands the replicator a task with at least one candidate node. (With overlapping
-\* rules the code as found keeps calling the replicator with an EMPTY candidate list: a holder remembered from
-\* an earlier rule does not lower the shortage of a later rule - a phantom shortage that copies nothing.)
-Replicates(d) == \E k \in 1..Len(d.tasks) : Len(d.tasks[k].nodes) > 0
-Quiet(hs) == \A n \in hs : LET d == Decide27(n, hs, {}, {}) IN ~Replicates(d) /\ d.del = "none"
-NoTasks(hs) == \A n \in hs : ~Replicates(Decide27(n, hs, {}, {}))
-a\* a check "replicates" when it hands the replicator a task with at least one candidate node. (With overlapping
-\* rules the code as found keeps calling the replicator with an EMPTY candidate list: a holder remembered from
-\* an earlier rule does not lower the shortage of a later rule - a phantom shortage that copies nothing.)
-Replicates(d) == \E k \in 1..Len(d.tasks) : Len(d.tasks[k].nodes) > 0
-Quiet(hs) == \A n \in hs : LET d == Decide27(n, hs, {}, {}) IN ~Replicates(d) /\ d.del = "none"
-NoTasks(hs) == \A n \in hs : ~Replicates(Decide27(n, hs, {}, {}))
-r\* a check "replicates" when it hands the replicator a task with at least one candidate node. (With overlapping
-\* rules the code as found keeps calling the replicator with an EMPTY candidate list: a holder remembered from
-\* an earlier rule does not lower the shortage of a later rule - a phantom shortage that copies nothing.)
-Replicates(d) == \E k \in 1..Len(d.tasks) : Len(d.tasks[k].nodes) > 0
-Quiet(hs) == \A n \in hs : LET d == Decide27(n, hs, {}, {}) IN ~Replicates(d) /\ d.del = "none"
-NoTasks(hs) == \A n \in hs : ~Replicates(Decide27(n, hs, {}, {}))
-e\* a check "replicates" when it hands the replicator a task with at least one candidate node. (With overlapping
-\* rules the code as found keeps calling the replicator with an EMPTY candidate list: a holder remembered from
-\* an earlier rule does not lower the shortage of a later rule - a phantom shortage that copies nothing.)
-Replicates(d) == \E k \in 1..Len(d.tasks) : Len(d.tasks[k].nodes) > 0
-Quiet(hs) == \A n \in hs : LET d == Decide27(n, hs, {}, {}) IN ~Replicates(d) /\ d.del = "none"
-NoTasks(hs) == \A n \in hs : ~Replicates(Decide27(n, hs, {}, {}))
- \* a check "replicates" when it hands the replicator a task with at least one candidate node. (With overlapping
-\* rules the code as found keeps calling the replicator with an EMPTY candidate list: a holder remembered from
-\* an earlier rule does not lower the shortage of a later rule - a phantom shortage that copies nothing.)
-Replicates(d) == \E k \in 1..Len(d.tasks) : Len(d.tasks[k].nodes) > 0
-Quiet(hs) == \A n \in hs : LET d == Decide27(n, hs, {}, {}) IN ~Replicates(d) /\ d.del = "none"
-NoTasks(hs) == \A n \in hs : ~Replicates(Decide27(n, hs, {}, {}))
-n\* a check "replicates" when it hands the replicator a task with at least one candidate node. (With overlapping
-\* rules the code as found keeps calling the replicator with an EMPTY candidate list: a holder remembered from
-\* an earlier rule does not lower the shortage of a later rule - a phantom shortage that copies nothing.)
-Replicates(d) == \E k \in 1..Len(d.tasks) : Len(d.tasks[k].nodes) > 0
-Quiet(hs) == \A n \in hs : LET d == Decide27(n, hs, {}, {}) IN ~Replicates(d) /\ d.del = "none"
-NoTasks(hs) == \A n \in hs : ~Replicates(Decide27(n, hs, {}, {}))
-e\* a check "replicates" when it hands the replicator a task with at least one candidate node. (With overlapping
-\* rules the code as found keeps calling the replicator with an EMPTY candidate list: a holder remembered from
-\* an earlier rule does not lower the shortage of a later rule - a phantom shortage that copies nothing.)
-Replicates(d) == \E k \in 1..Len(d.tasks) : Len(d.tasks[k].nodes) > 0
-Quiet(hs) == \A n \in hs : LET d == Decide27(n, hs, {}, {}) IN ~Replicates(d) /\ d.del = "none"
-NoTasks(hs) == \A n \in hs : ~Replicates(Decide27(n, hs, {}, {}))
-v\* a check "replicates" when it hands the replicator a task with at least one candidate node. (With overlapping
-\* rules the code as found keeps calling the replicator with an EMPTY candidate list: a holder remembered from
-\* an earlier rule does not lower the shortage of a later rule - a phantom shortage that copies nothing.)
-Replicates(d) == \E k \in 1..Len(d.tasks) : Len(d.tasks[k].nodes) > 0
-Quiet(hs) == \A n \in hs : LET d == Decide27(n, hs, {}, {}) IN ~Replicates(d) /\ d.del = "none"
-NoTasks(hs) == \A n \in hs : ~Replicates(Decide27(n, hs, {}, {}))
-e\* a check "replicates" when it hands the replicator a task with at least one candidate node. (With overlapping
-\* rules the code as found keeps calling the replicator with an EMPTY candidate list: a holder remembered from
-\* an earlier rule does not lower the shortage of a later rule - a phantom shortage that copies nothing.)
-Replicates(d) == \E k \in 1..Len(d.tasks) : Len(d.tasks[k].nodes) > 0
-Quiet(hs) == \A n \in hs : LET d == Decide27(n, hs, {}, {}) IN ~Replicates(d) /\ d.del = "none"
-NoTasks(hs) == \A n \in hs : ~Replicates(Decide27(n, hs, {}, {}))
-r\* a check "replicates" when it hands the replicator a task with at least one candidate node. (With overlapping
-\* rules the code as found keeps calling the replicator with an EMPTY candidate list: a holder remembered from
-\* an earlier rule does not lower the shortage of a later rule - a phantom shortage that copies nothing.)
-Replicates(d) == \E k \in 1..Len(d.tasks) : Len(d.tasks[k].nodes) > 0
-Quiet(hs) == \A n \in hs : LET d == Decide27(n, hs, {}, {}) IN ~Replicates(d) /\ d.del = "none"
-NoTasks(hs) == \A n \in hs : ~Replicates(Decide27(n, hs, {}, {}))
- \* a check "replicates" when it hands the replicator a task with at least one candidate node. (With overlapping
-\* rules the code as found keeps calling the replicator with an EMPTY candidate list: a holder remembered from
-\* an earlier rule does not lower the shortage of a later rule - a phantom shortage that copies nothing.)
-Replicates(d) == \E k \in 1..Len(d.tasks) : Len(d.tasks[k].nodes) > 0
-Quiet(hs) == \A n \in hs : LET d == Decide27(n, hs, {}, {}) IN ~Replicates(d) /\ d.del = "none"
-NoTasks(hs) == \A n \in hs : ~Replicates(Decide27(n, hs, {}, {}))
-l\* a check "replicates" when it hands the replicator a task with at least one candidate node. (With overlapping
-\* rules the code as found keeps calling the replicator with an EMPTY candidate list: a holder remembered from
-\* an earlier rule does not lower the shortage of a later rule - a phantom shortage that copies nothing.)
-Replicates(d) == \E k \in 1..Len(d.tasks) : Len(d.tasks[k].nodes) > 0
-Quiet(hs) == \A n \in hs : LET d == Decide27(n, hs, {}, {}) IN ~Replicates(d) /\ d.del = "none"
-NoTasks(hs) == \A n \in hs : ~Replicates(Decide27(n, hs, {}, {}))
-o\* a check "replicates" when it hands the replicator a task with at least one candidate node. (With overlapping
-\* rules the code as found keeps calling the replicator with an EMPTY candidate list: a holder remembered from
-\* an earlier rule does not lower the shortage of a later rule - a phantom shortage that copies nothing.)
-Replicates(d) == \E k \in 1..Len(d.tasks) : Len(d.tasks[k].nodes) > 0
-Quiet(hs) == \A n \in hs : LET d == Decide27(n, hs, {}, {}) IN ~Replicates(d) /\ d.del = "none"
-NoTasks(hs) == \A n \in hs : ~Replicates(Decide27(n, hs, {}, {}))
-s\* a check "replicates" when it hands the replicator a task with at least one candidate node. (With overlapping
-\* rules the code as found keeps calling the replicator with an EMPTY candidate list: a holder remembered from
-\* an earlier rule does not lower the shortage of a later rule - a phantom shortage that copies nothing.)
-Replicates(d) == \E k \in 1..Len(d.tasks) : Len(d.tasks[k].nodes) > 0
-Quiet(hs) == \A n \in hs : LET d == Decide27(n, hs, {}, {}) IN ~Replicates(d) /\ d.del = "none"
-NoTasks(hs) == \A n \in hs : ~Replicates(Decide27(n, hs, {}, {}))
-t\* a check "replicates" when it hands the replicator a task with at least one candidate node. (With overlapping
-\* rules the code as found keeps calling the replicator with an EMPTY candidate list: a holder remembered from
-\* an earlier rule does not lower the shortage of a later rule - a phantom shortage that copies nothing.)
-Replicates(d) == \E k \in 1..Len(d.tasks) : Len(d.tasks[k].nodes) > 0
-Quiet(hs) == \A n \in hs : LET d == Decide27(n, hs, {}, {}) IN ~Replicates(d) /\ d.del = "none"
-NoTasks(hs) == \A n \in hs : ~Replicates(Decide27(n, hs, {}, {}))
- \* a check "replicates" when it hands the replicator a task with at least one candidate node. (With overlapping
-\* rules the code as found keeps calling the replicator with an EMPTY candidate list: a holder remembered from
-\* an earlier rule does not lower the shortage of a later rule - a phantom shortage that copies nothing.)
-Replicates(d) == \E k \in 1..Len(d.tasks) : Len(d.tasks[k].nodes) > 0
-Quiet(hs) == \A n \in hs : LET d == Decide27(n, hs, {}, {}) IN ~Replicates(d) /\ d.del = "none"
-NoTasks(hs) == \A n \in hs : ~Replicates(Decide27(n, hs, {}, {}))
-a\* a check "replicates" when it hands the replicator a task with at least one candidate node. (With overlapping
-\* rules the code as found keeps calling the replicator with an EMPTY candidate list: a holder remembered from
-\* an earlier rule does not lower the shortage of a later rule - a phantom shortage that copies nothing.)
-Replicates(d) == \E k \in 1..Len(d.tasks) : Len(d.tasks[k].nodes) > 0
-Quiet(hs) == \A n \in hs : LET d == Decide27(n, hs, {}, {}) IN ~Replicates(d) /\ d.del = "none"
-NoTasks(hs) == \A n \in hs : ~Replicates(Decide27(n, hs, {}, {}))
-l\* a check "replicates" when it hands the replicator a task with at least one candidate node. (With overlapping
-\* rules the code as found keeps calling the replicator with an EMPTY candidate list: a holder remembered from
-\* an earlier rule does not lower the shortage of a later rule - a phantom shortage that copies nothing.)
-Replicates(d) == \E k \in 1..Len(d.tasks) : Len(d.tasks[k].nodes) > 0
-Quiet(hs) == \A n \in hs : LET d == Decide27(n, hs, {}, {}) IN ~Replicates(d) /\ d.del = "none"
-NoTasks(hs) == \A n \in hs : ~Replicates(Decide27(n, hs, {}, {}))
-t\* a check "replicates" when it hands the replicator a task with at least one candidate node. (With overlapping
-\* rules the code as found keeps calling the replicator with an EMPTY candidate list: a holder remembered from
-\* an earlier rule does not lower the shortage of a later rule - a phantom shortage that copies nothing.)
-Replicates(d) == \E k \in 1..Len(d.tasks) : Len(d.tasks[k].nodes) > 0
-Quiet(hs) == \A n \in hs : LET d == Decide27(n, hs, {}, {}) IN ~Replicates(d) /\ d.del = "none"
-NoTasks(hs) == \A n \in hs : ~Replicates(Decide27(n, hs, {}, {}))
-o\* a check "replicates" when it hands the replicator a task with at least one candidate node. (With overlapping
-\* rules the code as found keeps calling the replicator with an EMPTY candidate list: a holder remembered from
-\* an earlier rule does not lower the shortage of a later rule - a phantom shortage that copies nothing.)
-Replicates(d) == \E k \in 1..Len(d.tasks) : Len(d.tasks[k].nodes) > 0
-Quiet(hs) == \A n \in hs : LET d == Decide27(n, hs, {}, {}) IN ~Replicates(d) /\ d.del = "none"
-NoTasks(hs) == \A n \in hs : ~Replicates(Decide27(n, hs, {}, {}))
-g\* a check "replicates" when it hands the replicator a task with at least one candidate node. (With overlapping
-\* rules the code as found keeps calling the replicator with an EMPTY candidate list: a holder remembered from
-\* an earlier rule does not lower the shortage of a later rule - a phantom shortage that copies nothing.)
-Replicates(d) == \E k \in 1..Len(d.tasks) : Len(d.tasks[k].nodes) > 0
-Quiet(hs) == \A n \in hs : LET d == Decide27(n, hs, {}, {}) IN ~Replicates(d) /\ d.del = "none"
-NoTasks(hs) == \A n \in hs : ~Replicates(Decide27(n, hs, {}, {}))
-e\* a check "replicates" when it hands the replicator a task with at least one candidate node. (With overlapping
-\* rules the code as found keeps calling the replicator with an EMPTY candidate list: a holder remembered from
-\* an earlier rule does not lower the shortage of a later rule - a phantom shortage that copies nothing.)
-Replicates(d) == \E k \in 1..Len(d.tasks) : Len(d.tasks[k].nodes) > 0
-Quiet(hs) == \A n \in hs : LET d == Decide27(n, hs, {}, {}) IN ~Replicates(d) /\ d.del = "none"
-NoTasks(hs) == \A n \in hs : ~Replicates(Decide27(n, hs, {}, {}))
-t\* a check "replicates" when it hands the replicator a task with at least one candidate node. (With overlapping
-\* rules the code as found keeps calling the replicator with an EMPTY candidate list: a holder remembered from
-\* an earlier rule does not lower the shortage of a later rule - a phantom shortage that copies nothing.)
-Replicates(d) == \E k \in 1..Len(d.tasks) : Len(d.tasks[k].nodes) > 0
-Quiet(hs) == \A n \in hs : LET d == Decide27(n, hs, {}, {}) IN ~Replicates(d) /\ d.del = "none"
-NoTasks(hs) == \A n \in hs : ~Replicates(Decide27(n, hs, {}, {}))
-h\* a check "replicates" when it hands the replicator a task with at least one candidate node. (With overlapping
-\* rules the code as found keeps calling the replicator with an EMPTY candidate list: a holder remembered from
-\* an earlier rule does not lower the shortage of a later rule - a phantom shortage that copies nothing.)
-Replicates(d) == \E k \in 1..Len(d.tasks) : Len(d.tasks[k].nodes) > 0
-Quiet(hs) == \A n \in hs : LET d == Decide27(n, hs, {}, {}) IN ~Replicates(d) /\ d.del = "none"
-NoTasks(hs) == \A n \in hs : ~Replicates(Decide27(n, hs, {}, {}))
-e\* a check "replicates" when it hands the replicator a task with at least one candidate node. (With overlapping
-\* rules the code as found keeps calling the replicator with an EMPTY candidate list: a holder remembered from
-\* an earlier rule does not lower the shortage of a later rule - a phantom shortage that copies nothing.)
-Replicates(d) == \E k \in 1..Len(d.tasks) : Len(d.tasks[k].nodes) > 0
-Quiet(hs) == \A n \in hs : LET d == Decide27(n, hs, {}, {}) IN ~Replicates(d) /\ d.del = "none"
-NoTasks(hs) == \A n \in hs : ~Replicates(Decide27(n, hs, {}, {}))
-r\* a check "replicates" when it hands the replicator a task with at least one candidate node. (With overlapping
-\* rules the code as found keeps calling the replicator with an EMPTY candidate list: a holder remembered from
-\* an earlier rule does not lower the shortage of a later rule - a phantom shortage that copies nothing.)
-Replicates(d) == \E k \in 1..Len(d.tasks) : Len(d.tasks[k].nodes) > 0
-Quiet(hs) == \A n \in hs : LET d == Decide27(n, hs, {}, {}) IN ~Replicates(d) /\ d.del = "none"
-NoTasks(hs) == \A n \in hs : ~Replicates(Decide27(n, hs, {}, {}))
- \* a check "replicates" when it hands the replicator a task with at least one candidate node. (With overlapping
-\* rules the code as found keeps calling the replicator with an EMPTY candidate list: a holder remembered from
-\* an earlier rule does not lower the shortage of a later rule - a phantom shortage that copies nothing.)
-Replicates(d) == \E k \in 1..Len(d.tasks) : Len(d.tasks[k].nodes) > 0
-Quiet(hs) == \A n \in hs : LET d == Decide27(n, hs, {}, {}) IN ~Replicates(d) /\ d.del = "none"
-NoTasks(hs) == \A n \in hs : ~Replicates(Decide27(n, hs, {}, {}))
-b\* a check "replicates" when it hands the replicator a task with at least one candidate node. (With overlapping
-\* rules the code as found keeps calling the replicator with an EMPTY candidate list: a holder remembered from
-\* an earlier rule does not lower the shortage of a later rule - a phantom shortage that copies nothing.)
-Replicates(d) == \E k \in 1..Len(d.tasks) : Len(d.tasks[k].nodes) > 0
-Quiet(hs) == \A n \in hs : LET d == Decide27(n, hs, {}, {}) IN ~Replicates(d) /\ d.del = "none"
-NoTasks(hs) == \A n \in hs : ~Replicates(Decide27(n, hs, {}, {}))
-y\* a check "replicates" when it hands the replicator a task with at least one candidate node. (With overlapping
-\* rules the code as found keeps calling the replicator with an EMPTY candidate list: a holder remembered from
-\* an earlier rule does not lower the shortage of a later rule - a phantom shortage that copies nothing.)
-Replicates(d) == \E k \in 1..Len(d.tasks) : Len(d.tasks[k].nodes) > 0
-Quiet(hs) == \A n \in hs : LET d == Decide27(n, hs, {}, {}) IN ~Replicates(d) /\ d.del = "none"
-NoTasks(hs) == \A n \in hs : ~Replicates(Decide27(n, hs, {}, {}))
- \* a check "replicates" when it hands the replicator a task with at least one candidate node. (With overlapping
-\* rules the code as found keeps calling the replicator with an EMPTY candidate list: a holder remembered from
-\* an earlier rule does not lower the shortage of a later rule - a phantom shortage that copies nothing.)
-Replicates(d) == \E k \in 1..Len(d.tasks) : Len(d.tasks[k].nodes) > 0
-Quiet(hs) == \A n \in hs : LET d == Decide27(n, hs, {}, {}) IN ~Replicates(d) /\ d.del = "none"
-NoTasks(hs) == \A n \in hs : ~Replicates(Decide27(n, hs, {}, {}))
-p\* a check "replicates" when it hands the replicator a task with at least one candidate node. (With overlapping
-\* rules the code as found keeps calling the replicator with an EMPTY candidate list: a holder remembered from
-\* an earlier rule does not lower the shortage of a later rule - a phantom shortage that copies nothing.)
-Replicates(d) == \E k \in 1..Len(d.tasks) : Len(d.tasks[k].nodes) > 0
-Quiet(hs) == \A n \in hs : LET d == Decide27(n, hs, {}, {}) IN ~Replicates(d) /\ d.del = "none"
-NoTasks(hs) == \A n \in hs : ~Replicates(Decide27(n, hs, {}, {}))
-o\* a check "replicates" when it hands the replicator a task with at least one candidate node. (With overlapping
-\* rules the code as found keeps calling the replicator with an EMPTY candidate list: a holder remembered from
-\* an earlier rule does not lower the shortage of a later rule - a phantom shortage that copies nothing.)
-Replicates(d) == \E k \in 1..Len(d.tasks) : Len(d.tasks[k].nodes) > 0
-Quiet(hs) == \A n \in hs : LET d == Decide27(n, hs, {}, {}) IN ~Replicates(d) /\ d.del = "none"
-NoTasks(hs) == \A n \in hs : ~Replicates(Decide27(n, hs, {}, {}))
-l\* a check "replicates" when it hands the replicator a task with at least one candidate node. (With overlapping
-\* rules the code as found keeps calling the replicator with an EMPTY candidate list: a holder remembered from
-\* an earlier rule does not lower the shortage of a later rule - a phantom shortage that copies nothing.)
-Replicates(d) == \E k \in 1..Len(d.tasks) : Len(d.tasks[k].nodes) > 0
-Quiet(hs) == \A n \in hs : LET d == Decide27(n, hs, {}, {}) IN ~Replicates(d) /\ d.del = "none"
-NoTasks(hs) == \A n \in hs : ~Replicates(Decide27(n, hs, {}, {}))
-i\* a check "replicates" when it hands the replicator a task with at least one candidate node. (With overlapping
-\* rules the code as found keeps calling the replicator with an EMPTY candidate list: a holder remembered from
-\* an earlier rule does not lower the shortage of a later rule - a phantom shortage that copies nothing.)
-Replicates(d) == \E k \in 1..Len(d.tasks) : Len(d.tasks[k].nodes) > 0
-Quiet(hs) == \A n \in hs : LET d == Decide27(n, hs, {}, {}) IN ~Replicates(d) /\ d.del = "none"
-NoTasks(hs) == \A n \in hs : ~Replicates(Decide27(n, hs, {}, {}))
-c\* a check "replicates" when it hands the replicator a task with at least one candidate node. (With overlapping
-\* rules the code as found keeps calling the replicator with an EMPTY candidate list: a holder remembered from
-\* an earlier rule does not lower the shortage of a later rule - a phantom shortage that copies nothing.)
-Replicates(d) == \E k \in 1..Len(d.tasks) : Len(d.tasks[k].nodes) > 0
-Quiet(hs) == \A n \in hs : LET d == Decide27(n, hs, {}, {}) IN ~Replicates(d) /\ d.del = "none"
-NoTasks(hs) == \A n \in hs : ~Replicates(Decide27(n, hs, {}, {}))
-i\* a check "replicates" when it hands the replicator a task with at least one candidate node. (With overlapping
-\* rules the code as found keeps calling the replicator with an EMPTY candidate list: a holder remembered from
-\* an earlier rule does not lower the shortage of a later rule - a phantom shortage that copies nothing.)
-Replicates(d) == \E k \in 1..Len(d.tasks) : Len(d.tasks[k].nodes) > 0
-Quiet(hs) == \A n \in hs : LET d == Decide27(n, hs, {}, {}) IN ~Replicates(d) /\ d.del = "none"
-NoTasks(hs) == \A n \in hs : ~Replicates(Decide27(n, hs, {}, {}))
-n\* a check "replicates" when it hands the replicator a task with at least one candidate node. (With overlapping
-\* rules the code as found keeps calling the replicator with an EMPTY candidate list: a holder remembered from
-\* an earlier rule does not lower the shortage of a later rule - a phantom shortage that copies nothing.)
-Replicates(d) == \E k \in 1..Len(d.tasks) : Len(d.tasks[k].nodes) > 0
-Quiet(hs) == \A n \in hs : LET d == Decide27(n, hs, {}, {}) IN ~Replicates(d) /\ d.del = "none"
-NoTasks(hs) == \A n \in hs : ~Replicates(Decide27(n, hs, {}, {}))
-g\* a check "replicates" when it hands the replicator a task with at least one candidate node. (With overlapping
-\* rules the code as found keeps calling the replicator with an EMPTY candidate list: a holder remembered from
-\* an earlier rule does not lower the shortage of a later rule - a phantom shortage that copies nothing.)
-Replicates(d) == \E k \in 1..Len(d.tasks) : Len(d.tasks[k].nodes) > 0
-Quiet(hs) == \A n \in hs : LET d == Decide27(n, hs, {}, {}) IN ~Replicates(d) /\ d.del = "none"
-NoTasks(hs) == \A n \in hs : ~Replicates(Decide27(n, hs, {}, {}))
- \* a check "replicates" when it hands the replicator a task with at least one candidate node. (With overlapping
-\* rules the code as found keeps calling the replicator with an EMPTY candidate list: a holder remembered from
-\* an earlier rule does not lower the shortage of a later rule - a phantom shortage that copies nothing.)
-Replicates(d) == \E k \in 1..Len(d.tasks) : Len(d.tasks[k].nodes) > 0
-Quiet(hs) == \A n \in hs : LET d == Decide27(n, hs, {}, {}) IN ~Replicates(d) /\ d.del = "none"
-NoTasks(hs) == \A n \in hs : ~Replicates(Decide27(n, hs, {}, {}))
-a\* a check "replicates" when it hands the replicator a task with at least one candidate node. (With overlapping
-\* rules the code as found keeps calling the replicator with an EMPTY candidate list: a holder remembered from
-\* an earlier rule does not lower the shortage of a later rule - a phantom shortage that copies nothing.)
-Replicates(d) == \E k \in 1..Len(d.tasks) : Len(d.tasks[k].nodes) > 0
-Quiet(hs) == \A n \in hs : LET d == Decide27(n, hs, {}, {}) IN ~Replicates(d) /\ d.del = "none"
-NoTasks(hs) == \A n \in hs : ~Replicates(Decide27(n, hs, {}, {}))
-l\* a check "replicates" when it hands the replicator a task with at least one candidate node. (With overlapping
-\* rules the code as found keeps calling the replicator with an EMPTY candidate list: a holder remembered from
-\* an earlier rule does not lower the shortage of a later rule - a phantom shortage that copies nothing.)
-Replicates(d) == \E k \in 1..Len(d.tasks) : Len(d.tasks[k].nodes) > 0
-Quiet(hs) == \A n \in hs : LET d == Decide27(n, hs, {}, {}) IN ~Replicates(d) /\ d.del = "none"
-NoTasks(hs) == \A n \in hs : ~Replicates(Decide27(n, hs, {}, {}))
-o\* a check "replicates" when it hands the replicator a task with at least one candidate node. (With overlapping
-\* rules the code as found keeps calling the replicator with an EMPTY candidate list: a holder remembered from
-\* an earlier rule does not lower the shortage of a later rule - a phantom shortage that copies nothing.)
-Replicates(d) == \E k \in 1..Len(d.tasks) : Len(d.tasks[k].nodes) > 0
-Quiet(hs) == \A n \in hs : LET d == Decide27(n, hs, {}, {}) IN ~Replicates(d) /\ d.del = "none"
-NoTasks(hs) == \A n \in hs : ~Replicates(Decide27(n, hs, {}, {}))
-n\* a check "replicates" when it hands the replicator a task with at least one candidate node. (With overlapping
-\* rules the code as found keeps calling the replicator with an EMPTY candidate list: a holder remembered from
-\* an earlier rule does not lower the shortage of a later rule - a phantom shortage that copies nothing.)
-Replicates(d) == \E k \in 1..Len(d.tasks) : Len(d.tasks[k].nodes) > 0
-Quiet(hs) == \A n \in hs : LET d == Decide27(n, hs, {}, {}) IN ~Replicates(d) /\ d.del = "none"
-NoTasks(hs) == \A n \in hs : ~Replicates(Decide27(n, hs, {}, {}))
-e\* a check "replicates" when it hands the replicator a task with at least one candidate node. (With overlapping
-\* rules the code as found keeps calling the replicator with an EMPTY candidate list: a holder remembered from
-\* an earlier rule does not lower the shortage of a later rule - a phantom shortage that copies nothing.)
-Replicates(d) == \E k \in 1..Len(d.tasks) : Len(d.tasks[k].nodes) > 0
-Quiet(hs) == \A n \in hs : LET d == Decide27(n, hs, {}, {}) IN ~Replicates(d) /\ d.del = "none"
-NoTasks(hs) == \A n \in hs : ~Replicates(Decide27(n, hs, {}, {}))
-
-\* a check "replicates" when it hands the replicator a task with at least one candidate node. (With overlapping
-\* rules the code as found keeps calling the replicator with an EMPTY candidate list: a holder remembered from
-\* an earlier rule does not lower the shortage of a later rule - a phantom shortage that copies nothing.)
-Replicates(d) == \E k \in 1..Len(d.tasks) : Len(d.tasks[k].nodes) > 0
-Quiet(hs) == \A n \in hs : LET d == Decide27(n, hs, {}, {}) IN ~Replicates(d) /\ d.del = "none"
-NoTasks(hs) == \A n \in hs : ~Replicates(Decide27(n, hs, {}, {}))
-N\* a check "replicates" when it hands the replicator a task with at least one candidate node. (With overlapping
-\* rules the code as found keeps calling the replicator with an EMPTY candidate list: a holder remembered from
-\* an earlier rule does not lower the shortage of a later rule - a phantom shortage that copies nothing.)
-Replicates(d) == \E k \in 1..Len(d.tasks) : Len(d.tasks[k].nodes) > 0
-Quiet(hs) == \A n \in hs : LET d == Decide27(n, hs, {}, {}) IN ~Replicates(d) /\ d.del = "none"
-NoTasks(hs) == \A n \in hs : ~Replicates(Decide27(n, hs, {}, {}))
-e\* a check "replicates" when it hands the replicator a task with at least one candidate node. (With overlapping
-\* rules the code as found keeps calling the replicator with an EMPTY candidate list: a holder remembered from
-\* an earlier rule does not lower the shortage of a later rule - a phantom shortage that copies nothing.)
-Replicates(d) == \E k \in 1..Len(d.tasks) : Len(d.tasks[k].nodes) > 0
-Quiet(hs) == \A n \in hs : LET d == Decide27(n, hs, {}, {}) IN ~Replicates(d) /\ d.del = "none"
-NoTasks(hs) == \A n \in hs : ~Replicates(Decide27(n, hs, {}, {}))
-v\* a check "replicates" when it hands the replicator a task with at least one candidate node. (With overlapping
-\* rules the code as found keeps calling the replicator with an EMPTY candidate list: a holder remembered from
-\* an earlier rule does not lower the shortage of a later rule - a phantom shortage that copies nothing.)
-Replicates(d) == \E k \in 1..Len(d.tasks) : Len(d.tasks[k].nodes) > 0
-Quiet(hs) == \A n \in hs : LET d == Decide27(n, hs, {}, {}) IN ~Replicates(d) /\ d.del = "none"
-NoTasks(hs) == \A n \in hs : ~Replicates(Decide27(n, hs, {}, {}))
-e\* a check "replicates" when it hands the replicator a task with at least one candidate node. (With overlapping
-\* rules the code as found keeps calling the replicator with an EMPTY candidate list: a holder remembered from
-\* an earlier rule does not lower the shortage of a later rule - a phantom shortage that copies nothing.)
-Replicates(d) == \E k \in 1..Len(d.tasks) : Len(d.tasks[k].nodes) > 0
-Quiet(hs) == \A n \in hs : LET d == Decide27(n, hs, {}, {}) IN ~Replicates(d) /\ d.del = "none"
-NoTasks(hs) == \A n \in hs : ~Replicates(Decide27(n, hs, {}, {}))
-r\* a check "replicates" when it hands the replicator a task with at least one candidate node. (With overlapping
-\* rules the code as found keeps calling the replicator with an EMPTY candidate list: a holder remembered from
-\* an earlier rule does not lower the shortage of a later rule - a phantom shortage that copies nothing.)
-Replicates(d) == \E k \in 1..Len(d.tasks) : Len(d.tasks[k].nodes) > 0
-Quiet(hs) == \A n \in hs : LET d == Decide27(n, hs, {}, {}) IN ~Replicates(d) /\ d.del = "none"
-NoTasks(hs) == \A n \in hs : ~Replicates(Decide27(n, hs, {}, {}))
-E\* a check "replicates" when it hands the replicator a task with at least one candidate node. (With overlapping
-\* rules the code as found keeps calling the replicator with an EMPTY candidate list: a holder remembered from
-\* an earlier rule does not lower the shortage of a later rule - a phantom shortage that copies nothing.)
-Replicates(d) == \E k \in 1..Len(d.tasks) : Len(d.tasks[k].nodes) > 0
-Quiet(hs) == \A n \in hs : LET d == Decide27(n, hs, {}, {}) IN ~Replicates(d) /\ d.del = "none"
-NoTasks(hs) == \A n \in hs : ~Replicates(Decide27(n, hs, {}, {}))
-m\* a check "replicates" when it hands the replicator a task with at least one candidate node. (With overlapping
-\* rules the code as found keeps calling the replicator with an EMPTY candidate list: a holder remembered from
-\* an earlier rule does not lower the shortage of a later rule - a phantom shortage that copies nothing.)
-Replicates(d) == \E k \in 1..Len(d.tasks) : Len(d.tasks[k].nodes) > 0
-Quiet(hs) == \A n \in hs : LET d == Decide27(n, hs, {}, {}) IN ~Replicates(d) /\ d.del = "none"
-NoTasks(hs) == \A n \in hs : ~Replicates(Decide27(n, hs, {}, {}))
-p\* a check "replicates" when it hands the replicator a task with at least one candidate node. (With overlapping
-\* rules the code as found keeps calling the replicator with an EMPTY candidate list: a holder remembered from
-\* an earlier rule does not lower the shortage of a later rule - a phantom shortage that copies nothing.)
-Replicates(d) == \E k \in 1..Len(d.tasks) : Len(d.tasks[k].nodes) > 0
-Quiet(hs) == \A n \in hs : LET d == Decide27(n, hs, {}, {}) IN ~Replicates(d) /\ d.del = "none"
-NoTasks(hs) == \A n \in hs : ~Replicates(Decide27(n, hs, {}, {}))
-t\* a check "replicates" when it hands the replicator a task with at least one candidate node. (With overlapping
-\* rules the code as found keeps calling the replicator with an EMPTY candidate list: a holder remembered from
-\* an earlier rule does not lower the shortage of a later rule - a phantom shortage that copies nothing.)
-Replicates(d) == \E k \in 1..Len(d.tasks) : Len(d.tasks[k].nodes) > 0
-Quiet(hs) == \A n \in hs : LET d == Decide27(n, hs, {}, {}) IN ~Replicates(d) /\ d.del = "none"
-NoTasks(hs) == \A n \in hs : ~Replicates(Decide27(n, hs, {}, {}))
-y\* a check "replicates" when it hands the replicator a task with at least one candidate node. (With overlapping
-\* rules the code as found keeps calling the replicator with an EMPTY candidate list: a holder remembered from
-\* an earlier rule does not lower the shortage of a later rule - a phantom shortage that copies nothing.)
-Replicates(d) == \E k \in 1..Len(d.tasks) : Len(d.tasks[k].nodes) > 0
-Quiet(hs) == \A n \in hs : LET d == Decide27(n, hs, {}, {}) IN ~Replicates(d) /\ d.del = "none"
-NoTasks(hs) == \A n \in hs : ~Replicates(Decide27(n, hs, {}, {}))
- \* a check "replicates" when it hands the replicator a task with at least one candidate node. (With overlapping
-\* rules the code as found keeps calling the replicator with an EMPTY candidate list: a holder remembered from
-\* an earlier rule does not lower the shortage of a later rule - a phantom shortage that copies nothing.)
-Replicates(d) == \E k \in 1..Len(d.tasks) : Len(d.tasks[k].nodes) > 0
-Quiet(hs) == \A n \in hs : LET d == Decide27(n, hs, {}, {}) IN ~Replicates(d) /\ d.del = "none"
-NoTasks(hs) == \A n \in hs : ~Replicates(Decide27(n, hs, {}, {}))
-=\* a check "replicates" when it hands the replicator a task with at least one candidate node. (With overlapping
-\* rules the code as found keeps calling the replicator with an EMPTY candidate list: a holder remembered from
-\* an earlier rule does not lower the shortage of a later rule - a phantom shortage that copies nothing.)
-Replicates(d) == \E k \in 1..Len(d.tasks) : Len(d.tasks[k].nodes) > 0
-Quiet(hs) == \A n \in hs : LET d == Decide27(n, hs, {}, {}) IN ~Replicates(d) /\ d.del = "none"
-NoTasks(hs) == \A n \in hs : ~Replicates(Decide27(n, hs, {}, {}))
-=\* a check "replicates" when it hands the replicator a task with at least one candidate node. (With overlapping
-\* rules the code as found keeps calling the replicator with an EMPTY candidate list: a holder remembered from
-\* an earlier rule does not lower the shortage of a later rule - a phantom shortage that copies nothing.)
-Replicates(d) == \E k \in 1..Len(d.tasks) : Len(d.tasks[k].nodes) > 0
-Quiet(hs) == \A n \in hs : LET d == Decide27(n, hs, {}, {}) IN ~Replicates(d) /\ d.del = "none"
-NoTasks(hs) == \A n \in hs : ~Replicates(Decide27(n, hs, {}, {}))
- \* a check "replicates" when it hands the replicator a task with at least one candidate node. (With overlapping
-\* rules the code as found keeps calling the replicator with an EMPTY candidate list: a holder remembered from
-\* an earlier rule does not lower the shortage of a later rule - a phantom shortage that copies nothing.)
-Replicates(d) == \E k \in 1..Len(d.tasks) : Len(d.tasks[k].nodes) > 0
-Quiet(hs) == \A n \in hs : LET d == Decide27(n, hs, {}, {}) IN ~Replicates(d) /\ d.del = "none"
-NoTasks(hs) == \A n \in hs : ~Replicates(Decide27(n, hs, {}, {}))
-h\* a check "replicates" when it hands the replicator a task with at least one candidate node. (With overlapping
-\* rules the code as found keeps calling the replicator with an EMPTY candidate list: a holder remembered from
-\* an earlier rule does not lower the shortage of a later rule - a phantom shortage that copies nothing.)
-Replicates(d) == \E k \in 1..Len(d.tasks) : Len(d.tasks[k].nodes) > 0
-Quiet(hs) == \A n \in hs : LET d == Decide27(n, hs, {}, {}) IN ~Replicates(d) /\ d.del = "none"
-NoTasks(hs) == \A n \in hs : ~Replicates(Decide27(n, hs, {}, {}))
-o\* a check "replicates" when it hands the replicator a task with at least one candidate node. (With overlapping
-\* rules the code as found keeps calling the replicator with an EMPTY candidate list: a holder remembered from
-\* an earlier rule does not lower the shortage of a later rule - a phantom shortage that copies nothing.)
-Replicates(d) == \E k \in 1..Len(d.tasks) : Len(d.tasks[k].nodes) > 0
-Quiet(hs) == \A n \in hs : LET d == Decide27(n, hs, {}, {}) IN ~Replicates(d) /\ d.del = "none"
-NoTasks(hs) == \A n \in hs : ~Replicates(Decide27(n, hs, {}, {}))
-l\* a check "replicates" when it hands the replicator a task with at least one candidate node. (With overlapping
-\* rules the code as found keeps calling the replicator with an EMPTY candidate list: a holder remembered from
-\* an earlier rule does not lower the shortage of a later rule - a phantom shortage that copies nothing.)
-Replicates(d) == \E k \in 1..Len(d.tasks) : Len(d.tasks[k].nodes) > 0
-Quiet(hs) == \A n \in hs : LET d == Decide27(n, hs, {}, {}) IN ~Replicates(d) /\ d.del = "none"
-NoTasks(hs) == \A n \in hs : ~Replicates(Decide27(n, hs, {}, {}))
-d\* a check "replicates" when it hands the replicator a task with at least one candidate node. (With overlapping
-\* rules the code as found keeps calling the replicator with an EMPTY candidate list: a holder remembered from
-\* an earlier rule does not lower the shortage of a later rule - a phantom shortage that copies nothing.)
-Replicates(d) == \E k \in 1..Len(d.tasks) : Len(d.tasks[k].nodes) > 0
-Quiet(hs) == \A n \in hs : LET d == Decide27(n, hs, {}, {}) IN ~Replicates(d) /\ d.del = "none"
-NoTasks(hs) == \A n \in hs : ~Replicates(Decide27(n, hs, {}, {}))
-e\* a check "replicates" when it hands the replicator a task with at least one candidate node. (With overlapping
-\* rules the code as found keeps calling the replicator with an EMPTY candidate list: a holder remembered from
-\* an earlier rule does not lower the shortage of a later rule - a phantom shortage that copies nothing.)
-Replicates(d) == \E k \in 1..Len(d.tasks) : Len(d.tasks[k].nodes) > 0
-Quiet(hs) == \A n \in hs : LET d == Decide27(n, hs, {}, {}) IN ~Replicates(d) /\ d.del = "none"
-NoTasks(hs) == \A n \in hs : ~Replicates(Decide27(n, hs, {}, {}))
-r\* a check "replicates" when it hands the replicator a task with at least one candidate node. (With overlapping
-\* rules the code as found keeps calling the replicator with an EMPTY candidate list: a holder remembered from
-\* an earlier rule does not lower the shortage of a later rule - a phantom shortage that copies nothing.)
-Replicates(d) == \E k \in 1..Len(d.tasks) : Len(d.tasks[k].nodes) > 0
-Quiet(hs) == \A n \in hs : LET d == Decide27(n, hs, {}, {}) IN ~Replicates(d) /\ d.del = "none"
-NoTasks(hs) == \A n \in hs : ~Replicates(Decide27(n, hs, {}, {}))
-s\* a check "replicates" when it hands the replicator a task with at least one candidate node. (With overlapping
-\* rules the code as found keeps calling the replicator with an EMPTY candidate list: a holder remembered from
-\* an earlier rule does not lower the shortage of a later rule - a phantom shortage that copies nothing.)
-Replicates(d) == \E k \in 1..Len(d.tasks) : Len(d.tasks[k].nodes) > 0
-Quiet(hs) == \A n \in hs : LET d == Decide27(n, hs, {}, {}) IN ~Replicates(d) /\ d.del = "none"
-NoTasks(hs) == \A n \in hs : ~Replicates(Decide27(n, hs, {}, {}))
- \* a check "replicates" when it hands the replicator a task with at least one candidate node. (With overlapping
-\* rules the code as found keeps calling the replicator with an EMPTY candidate list: a holder remembered from
-\* an earlier rule does not lower the shortage of a later rule - a phantom shortage that copies nothing.)
-Replicates(d) == \E k \in 1..Len(d.tasks) : Len(d.tasks[k].nodes) > 0
-Quiet(hs) == \A n \in hs : LET d == Decide27(n, hs, {}, {}) IN ~Replicates(d) /\ d.del = "none"
-NoTasks(hs) == \A n \in hs : ~Replicates(Decide27(n, hs, {}, {}))
-#\* a check "replicates" when it hands the replicator a task with at least one candidate node. (With overlapping
-\* rules the code as found keeps calling the replicator with an EMPTY candidate list: a holder remembered from
-\* an earlier rule does not lower the shortage of a later rule - a phantom shortage that copies nothing.)
-Replicates(d) == \E k \in 1..Len(d.tasks) : Len(d.tasks[k].nodes) > 0
-Quiet(hs) == \A n \in hs : LET d == Decide27(n, hs, {}, {}) IN ~Replicates(d) /\ d.del = "none"
-NoTasks(hs) == \A n \in hs : ~Replicates(Decide27(n, hs, {}, {}))
- \* a check "replicates" when it hands the replicator a task with at least one candidate node. (With overlapping
-\* rules the code as found keeps calling the replicator with an EMPTY candidate list: a holder remembered from
-\* an earlier rule does not lower the shortage of a later rule - a phantom shortage that copies nothing.)
-Replicates(d) == \E k \in 1..Len(d.tasks) : Len(d.tasks[k].nodes) > 0
-Quiet(hs) == \A n \in hs : LET d == Decide27(n, hs, {}, {}) IN ~Replicates(d) /\ d.del = "none"
-NoTasks(hs) == \A n \in hs : ~Replicates(Decide27(n, hs, {}, {}))
-{\* a check "replicates" when it hands the replicator a task with at least one candidate node. (With overlapping
-\* rules the code as found keeps calling the replicator with an EMPTY candidate list: a holder remembered from
-\* an earlier rule does not lower the shortage of a later rule - a phantom shortage that copies nothing.)
-Replicates(d) == \E k \in 1..Len(d.tasks) : Len(d.tasks[k].nodes) > 0
-Quiet(hs) == \A n \in hs : LET d == Decide27(n, hs, {}, {}) IN ~Replicates(d) /\ d.del = "none"
-NoTasks(hs) == \A n \in hs : ~Replicates(Decide27(n, hs, {}, {}))
-}\* a check "replicates" when it hands the replicator a task with at least one candidate node. (With overlapping
-\* rules the code as found keeps calling the replicator with an EMPTY candidate list: a holder remembered from
-\* an earlier rule does not lower the shortage of a later rule - a phantom shortage that copies nothing.)
-Replicates(d) == \E k \in 1..Len(d.tasks) : Len(d.tasks[k].nodes) > 0
-Quiet(hs) == \A n \in hs : LET d == Decide27(n, hs, {}, {}) IN ~Replicates(d) /\ d.del = "none"
-NoTasks(hs) == \A n \in hs : ~Replicates(Decide27(n, hs, {}, {}))
-
-\* a check "replicates" when it hands the replicator a task with at least one candidate node. (With overlapping
-\* rules the code as found keeps calling the replicator with an EMPTY candidate list: a holder remembered from
-\* an earlier rule does not lower the shortage of a later rule - a phantom shortage that copies nothing.)
-Replicates(d) == \E k \in 1..Len(d.tasks) : Len(d.tasks[k].nodes) > 0
-Quiet(hs) == \A n \in hs : LET d == Decide27(n, hs, {}, {}) IN ~Replicates(d) /\ d.del = "none"
-NoTasks(hs) == \A n \in hs : ~Replicates(Decide27(n, hs, {}, {}))
-\\* a check "replicates" when it hands the replicator a task with at least one candidate node. (With overlapping
-\* rules the code as found keeps calling the replicator with an EMPTY candidate list: a holder remembered from
-\* an earlier rule does not lower the shortage of a later rule - a phantom shortage that copies nothing.)
-Replicates(d) == \E k \in 1..Len(d.tasks) : Len(d.tasks[k].nodes) > 0
-Quiet(hs) == \A n \in hs : LET d == Decide27(n, hs, {}, {}) IN ~Replicates(d) /\ d.del = "none"
-NoTasks(hs) == \A n \in hs : ~Replicates(Decide27(n, hs, {}, {}))
-*\* a check "replicates" when it hands the replicator a task with at least one candidate node. (With overlapping
-\* rules the code as found keeps calling the replicator with an EMPTY candidate list: a holder remembered from
-\* an earlier rule does not lower the shortage of a later rule - a phantom shortage that copies nothing.)
-Replicates(d) == \E k \in 1..Len(d.tasks) : Len(d.tasks[k].nodes) > 0
-Quiet(hs) == \A n \in hs : LET d == Decide27(n, hs, {}, {}) IN ~Replicates(d) /\ d.del = "none"
-NoTasks(hs) == \A n \in hs : ~Replicates(Decide27(n, hs, {}, {}))
- \* a check "replicates" when it hands the replicator a task with at least one candidate node. (With overlapping
-\* rules the code as found keeps calling the replicator with an EMPTY candidate list: a holder remembered from
-\* an earlier rule does not lower the shortage of a later rule - a phantom shortage that copies nothing.)
-Replicates(d) == \E k \in 1..Len(d.tasks) : Len(d.tasks[k].nodes) > 0
-Quiet(hs) == \A n \in hs : LET d == Decide27(n, hs, {}, {}) IN ~Replicates(d) /\ d.del = "none"
-NoTasks(hs) == \A n \in hs : ~Replicates(Decide27(n, hs, {}, {}))
-r\* a check "replicates" when it hands the replicator a task with at least one candidate node. (With overlapping
-\* rules the code as found keeps calling the replicator with an EMPTY candidate list: a holder remembered from
-\* an earlier rule does not lower the shortage of a later rule - a phantom shortage that copies nothing.)
-Replicates(d) == \E k \in 1..Len(d.tasks) : Len(d.tasks[k].nodes) > 0
-Quiet(hs) == \A n \in hs : LET d == Decide27(n, hs, {}, {}) IN ~Replicates(d) /\ d.del = "none"
-NoTasks(hs) == \A n \in hs : ~Replicates(Decide27(n, hs, {}, {}))
-e\* a check "replicates" when it hands the replicator a task with at least one candidate node. (With overlapping
-\* rules the code as found keeps calling the replicator with an EMPTY candidate list: a holder remembered from
-\* an earlier rule does not lower the shortage of a later rule - a phantom shortage that copies nothing.)
-Replicates(d) == \E k \in 1..Len(d.tasks) : Len(d.tasks[k].nodes) > 0
-Quiet(hs) == \A n \in hs : LET d == Decide27(n, hs, {}, {}) IN ~Replicates(d) /\ d.del = "none"
-NoTasks(hs) == \A n \in hs : ~Replicates(Decide27(n, hs, {}, {}))
-p\* a check "replicates" when it hands the replicator a task with at least one candidate node. (With overlapping
-\* rules the code as found keeps calling the replicator with an EMPTY candidate list: a holder remembered from
-\* an earlier rule does not lower the shortage of a later rule - a phantom shortage that copies nothing.)
-Replicates(d) == \E k \in 1..Len(d.tasks) : Len(d.tasks[k].nodes) > 0
-Quiet(hs) == \A n \in hs : LET d == Decide27(n, hs, {}, {}) IN ~Replicates(d) /\ d.del = "none"
-NoTasks(hs) == \A n \in hs : ~Replicates(Decide27(n, hs, {}, {}))
-l\* a check "replicates" when it hands the replicator a task with at least one candidate node. (With overlapping
-\* rules the code as found keeps calling the replicator with an EMPTY candidate list: a holder remembered from
-\* an earlier rule does not lower the shortage of a later rule - a phantom shortage that copies nothing.)
-Replicates(d) == \E k \in 1..Len(d.tasks) : Len(d.tasks[k].nodes) > 0
-Quiet(hs) == \A n \in hs : LET d == Decide27(n, hs, {}, {}) IN ~Replicates(d) /\ d.del = "none"
-NoTasks(hs) == \A n \in hs : ~Replicates(Decide27(n, hs, {}, {}))
-i\* a check "replicates" when it hands the replicator a task with at least one candidate node. (With overlapping
-\* rules the code as found keeps calling the replicator with an EMPTY candidate list: a holder remembered from
-\* an earlier rule does not lower the shortage of a later rule - a phantom shortage that copies nothing.)
-Replicates(d) == \E k \in 1..Len(d.tasks) : Len(d.tasks[k].nodes) > 0
-Quiet(hs) == \A n \in hs : LET d == Decide27(n, hs, {}, {}) IN ~Replicates(d) /\ d.del = "none"
-NoTasks(hs) == \A n \in hs : ~Replicates(Decide27(n, hs, {}, {}))
-c\* a check "replicates" when it hands the replicator a task with at least one candidate node. (With overlapping
-\* rules the code as found keeps calling the replicator with an EMPTY candidate list: a holder remembered from
-\* an earlier rule does not lower the shortage of a later rule - a phantom shortage that copies nothing.)
-Replicates(d) == \E k \in 1..Len(d.tasks) : Len(d.tasks[k].nodes) > 0
-Quiet(hs) == \A n \in hs : LET d == Decide27(n, hs, {}, {}) IN ~Replicates(d) /\ d.del = "none"
-NoTasks(hs) == \A n \in hs : ~Replicates(Decide27(n, hs, {}, {}))
-a\* a check "replicates" when it hands the replicator a task with at least one candidate node. (With overlapping
-\* rules the code as found keeps calling the replicator with an EMPTY candidate list: a holder remembered from
-\* an earlier rule does not lower the shortage of a later rule - a phantom shortage that copies nothing.)
-Replicates(d) == \E k \in 1..Len(d.tasks) : Len(d.tasks[k].nodes) > 0
-Quiet(hs) == \A n \in hs : LET d == Decide27(n, hs, {}, {}) IN ~Replicates(d) /\ d.del = "none"
-NoTasks(hs) == \A n \in hs : ~Replicates(Decide27(n, hs, {}, {}))
-t\* a check "replicates" when it hands the replicator a task with at least one candidate node. (With overlapping
-\* rules the code as found keeps calling the replicator with an EMPTY candidate list: a holder remembered from
-\* an earlier rule does not lower the shortage of a later rule - a phantom shortage that copies nothing.)
-Replicates(d) == \E k \in 1..Len(d.tasks) : Len(d.tasks[k].nodes) > 0
-Quiet(hs) == \A n \in hs : LET d == Decide27(n, hs, {}, {}) IN ~Replicates(d) /\ d.del = "none"
-NoTasks(hs) == \A n \in hs : ~Replicates(Decide27(n, hs, {}, {}))
-o\* a check "replicates" when it hands the replicator a task with at least one candidate node. (With overlapping
-\* rules the code as found keeps calling the replicator with an EMPTY candidate list: a holder remembered from
-\* an earlier rule does not lower the shortage of a later rule - a phantom shortage that copies nothing.)
-Replicates(d) == \E k \in 1..Len(d.tasks) : Len(d.tasks[k].nodes) > 0
-Quiet(hs) == \A n \in hs : LET d == Decide27(n, hs, {}, {}) IN ~Replicates(d) /\ d.del = "none"
-NoTasks(hs) == \A n \in hs : ~Replicates(Decide27(n, hs, {}, {}))
-r\* a check "replicates" when it hands the replicator a task with at least one candidate node. (With overlapping
-\* rules the code as found keeps calling the replicator with an EMPTY candidate list: a holder remembered from
-\* an earlier rule does not lower the shortage of a later rule - a phantom shortage that copies nothing.)
-Replicates(d) == \E k \in 1..Len(d.tasks) : Len(d.tasks[k].nodes) > 0
-Quiet(hs) == \A n \in hs : LET d == Decide27(n, hs, {}, {}) IN ~Replicates(d) /\ d.del = "none"
-NoTasks(hs) == \A n \in hs : ~Replicates(Decide27(n, hs, {}, {}))
- \* a check "replicates" when it hands the replicator a task with at least one candidate node. (With overlapping
-\* rules the code as found keeps calling the replicator with an EMPTY candidate list: a holder remembered from
-\* an earlier rule does not lower the shortage of a later rule - a phantom shortage that copies nothing.)
-Replicates(d) == \E k \in 1..Len(d.tasks) : Len(d.tasks[k].nodes) > 0
-Quiet(hs) == \A n \in hs : LET d == Decide27(n, hs, {}, {}) IN ~Replicates(d) /\ d.del = "none"
-NoTasks(hs) == \A n \in hs : ~Replicates(Decide27(n, hs, {}, {}))
-a\* a check "replicates" when it hands the replicator a task with at least one candidate node. (With overlapping
-\* rules the code as found keeps calling the replicator with an EMPTY candidate list: a holder remembered from
-\* an earlier rule does not lower the shortage of a later rule - a phantom shortage that copies nothing.)
-Replicates(d) == \E k \in 1..Len(d.tasks) : Len(d.tasks[k].nodes) > 0
-Quiet(hs) == \A n \in hs : LET d == Decide27(n, hs, {}, {}) IN ~Replicates(d) /\ d.del = "none"
-NoTasks(hs) == \A n \in hs : ~Replicates(Decide27(n, hs, {}, {}))
-c\* a check "replicates" when it hands the replicator a task with at least one candidate node. (With overlapping
-\* rules the code as found keeps calling the replicator with an EMPTY candidate list: a holder remembered from
-\* an earlier rule does not lower the shortage of a later rule - a phantom shortage that copies nothing.)
-Replicates(d) == \E k \in 1..Len(d.tasks) : Len(d.tasks[k].nodes) > 0
-Quiet(hs) == \A n \in hs : LET d == Decide27(n, hs, {}, {}) IN ~Replicates(d) /\ d.del = "none"
-NoTasks(hs) == \A n \in hs : ~Replicates(Decide27(n, hs, {}, {}))
-c\* a check "replicates" when it hands the replicator a task with at least one candidate node. (With overlapping
-\* rules the code as found keeps calling the replicator with an EMPTY candidate list: a holder remembered from
-\* an earlier rule does not lower the shortage of a later rule - a phantom shortage that copies nothing.)
-Replicates(d) == \E k \in 1..Len(d.tasks) : Len(d.tasks[k].nodes) > 0
-Quiet(hs) == \A n \in hs : LET d == Decide27(n, hs, {}, {}) IN ~Replicates(d) /\ d.del = "none"
-NoTasks(hs) == \A n \in hs : ~Replicates(Decide27(n, hs, {}, {}))
-o\* a check "replicates" when it hands the replicator a task with at least one candidate node. (With overlapping
-\* rules the code as found keeps calling the replicator with an EMPTY candidate list: a holder remembered from
-\* an earlier rule does not lower the shortage of a later rule - a phantom shortage that copies nothing.)
-Replicates(d) == \E k \in 1..Len(d.tasks) : Len(d.tasks[k].nodes) > 0
-Quiet(hs) == \A n \in hs : LET d == Decide27(n, hs, {}, {}) IN ~Replicates(d) /\ d.del = "none"
-NoTasks(hs) == \A n \in hs : ~Replicates(Decide27(n, hs, {}, {}))
-u\* a check "replicates" when it hands the replicator a task with at least one candidate node. (With overlapping
-\* rules the code as found keeps calling the replicator with an EMPTY candidate list: a holder remembered from
-\* an earlier rule does not lower the shortage of a later rule - a phantom shortage that copies nothing.)
-Replicates(d) == \E k \in 1..Len(d.tasks) : Len(d.tasks[k].nodes) > 0
-Quiet(hs) == \A n \in hs : LET d == Decide27(n, hs, {}, {}) IN ~Replicates(d) /\ d.del = "none"
-NoTasks(hs) == \A n \in hs : ~Replicates(Decide27(n, hs, {}, {}))
-n\* a check "replicates" when it hands the replicator a task with at least one candidate node. (With overlapping
-\* rules the code as found keeps calling the replicator with an EMPTY candidate list: a holder remembered from
-\* an earlier rule does not lower the shortage of a later rule - a phantom shortage that copies nothing.)
-Replicates(d) == \E k \in 1..Len(d.tasks) : Len(d.tasks[k].nodes) > 0
-Quiet(hs) == \A n \in hs : LET d == Decide27(n, hs, {}, {}) IN ~Replicates(d) /\ d.del = "none"
-NoTasks(hs) == \A n \in hs : ~Replicates(Decide27(n, hs, {}, {}))
-t\* a check "replicates" when it hands the replicator a task with at least one candidate node. (With overlapping
-\* rules the code as found keeps calling the replicator with an EMPTY candidate list: a holder remembered from
-\* an earlier rule does not lower the shortage of a later rule - a phantom shortage that copies nothing.)
-Replicates(d) == \E k \in 1..Len(d.tasks) : Len(d.tasks[k].nodes) > 0
-Quiet(hs) == \A n \in hs : LET d == Decide27(n, hs, {}, {}) IN ~Replicates(d) /\ d.del = "none"
-NoTasks(hs) == \A n \in hs : ~Replicates(Decide27(n, hs, {}, {}))
-i\* a check "replicates" when it hands the replicator a task with at least one candidate node. (With overlapping
-\* rules the code as found keeps calling the replicator with an EMPTY candidate list: a holder remembered from
-\* an earlier rule does not lower the shortage of a later rule - a phantom shortage that copies nothing.)
-Replicates(d) == \E k \in 1..Len(d.tasks) : Len(d.tasks[k].nodes) > 0
-Quiet(hs) == \A n \in hs : LET d == Decide27(n, hs, {}, {}) IN ~Replicates(d) /\ d.del = "none"
-NoTasks(hs) == \A n \in hs : ~Replicates(Decide27(n, hs, {}, {}))
-n\* a check "replicates" when it hands the replicator a task with at least one candidate node. (With overlapping
-\* rules the code as found keeps calling the replicator with an EMPTY candidate list: a holder remembered from
-\* an earlier rule does not lower the shortage of a later rule - a phantom shortage that copies nothing.)
-Replicates(d) == \E k \in 1..Len(d.tasks) : Len(d.tasks[k].nodes) > 0
-Quiet(hs) == \A n \in hs : LET d == Decide27(n, hs, {}, {}) IN ~Replicates(d) /\ d.del = "none"
-NoTasks(hs) == \A n \in hs : ~Replicates(Decide27(n, hs, {}, {}))
-g\* a check "replicates" when it hands the replicator a task with at least one candidate node. (With overlapping
-\* rules the code as found keeps calling the replicator with an EMPTY candidate list: a holder remembered from
-\* an earlier rule does not lower the shortage of a later rule - a phantom shortage that copies nothing.)
-Replicates(d) == \E k \in 1..Len(d.tasks) : Len(d.tasks[k].nodes) > 0
-Quiet(hs) == \A n \in hs : LET d == Decide27(n, hs, {}, {}) IN ~Replicates(d) /\ d.del = "none"
-NoTasks(hs) == \A n \in hs : ~Replicates(Decide27(n, hs, {}, {}))
- \* a check "replicates" when it hands the replicator a task with at least one candidate node. (With overlapping
-\* rules the code as found keeps calling the replicator with an EMPTY candidate list: a holder remembered from
-\* an earlier rule does not lower the shortage of a later rule - a phantom shortage that copies nothing.)
-Replicates(d) == \E k \in 1..Len(d.tasks) : Len(d.tasks[k].nodes) > 0
-Quiet(hs) == \A n \in hs : LET d == Decide27(n, hs, {}, {}) IN ~Replicates(d) /\ d.del = "none"
-NoTasks(hs) == \A n \in hs : ~Replicates(Decide27(n, hs, {}, {}))
-a\* a check "replicates" when it hands the replicator a task with at least one candidate node. (With overlapping
-\* rules the code as found keeps calling the replicator with an EMPTY candidate list: a holder remembered from
-\* an earlier rule does not lower the shortage of a later rule - a phantom shortage that copies nothing.)
-Replicates(d) == \E k \in 1..Len(d.tasks) : Len(d.tasks[k].nodes) > 0
-Quiet(hs) == \A n \in hs : LET d == Decide27(n, hs, {}, {}) IN ~Replicates(d) /\ d.del = "none"
-NoTasks(hs) == \A n \in hs : ~Replicates(Decide27(n, hs, {}, {}))
-s\* a check "replicates" when it hands the replicator a task with at least one candidate node. (With overlapping
-\* rules the code as found keeps calling the replicator with an EMPTY candidate list: a holder remembered from
-\* an earlier rule does not lower the shortage of a later rule - a phantom shortage that copies nothing.)
-Replicates(d) == \E k \in 1..Len(d.tasks) : Len(d.tasks[k].nodes) > 0
-Quiet(hs) == \A n \in hs : LET d == Decide27(n, hs, {}, {}) IN ~Replicates(d) /\ d.del = "none"
-NoTasks(hs) == \A n \in hs : ~Replicates(Decide27(n, hs, {}, {}))
- \* a check "replicates" when it hands the replicator a task with at least one candidate node. (With overlapping
-\* rules the code as found keeps calling the replicator with an EMPTY candidate list: a holder remembered from
-\* an earlier rule does not lower the shortage of a later rule - a phantom shortage that copies nothing.)
-Replicates(d) == \E k \in 1..Len(d.tasks) : Len(d.tasks[k].nodes) > 0
-Quiet(hs) == \A n \in hs : LET d == Decide27(n, hs, {}, {}) IN ~Replicates(d) /\ d.del = "none"
-NoTasks(hs) == \A n \in hs : ~Replicates(Decide27(n, hs, {}, {}))
-s\* a check "replicates" when it hands the replicator a task with at least one candidate node. (With overlapping
-\* rules the code as found keeps calling the replicator with an EMPTY candidate list: a holder remembered from
-\* an earlier rule does not lower the shortage of a later rule - a phantom shortage that copies nothing.)
-Replicates(d) == \E k \in 1..Len(d.tasks) : Len(d.tasks[k].nodes) > 0
-Quiet(hs) == \A n \in hs : LET d == Decide27(n, hs, {}, {}) IN ~Replicates(d) /\ d.del = "none"
-NoTasks(hs) == \A n \in hs : ~Replicates(Decide27(n, hs, {}, {}))
-e\* a check "replicates" when it hands the replicator a task with at least one candidate node. (With overlapping
-\* rules the code as found keeps calling the replicator with an EMPTY candidate list: a holder remembered from
-\* an earlier rule does not lower the shortage of a later rule - a phantom shortage that copies nothing.)
-Replicates(d) == \E k \in 1..Len(d.tasks) : Len(d.tasks[k].nodes) > 0
-Quiet(hs) == \A n \in hs : LET d == Decide27(n, hs, {}, {}) IN ~Replicates(d) /\ d.del = "none"
-NoTasks(hs) == \A n \in hs : ~Replicates(Decide27(n, hs, {}, {}))
-e\* a check "replicates" when it hands the replicator a task with at least one candidate node. (With overlapping
-\* rules the code as found keeps calling the replicator with an EMPTY candidate list: a holder remembered from
-\* an earlier rule does not lower the shortage of a later rule - a phantom shortage that copies nothing.)
-Replicates(d) == \E k \in 1..Len(d.tasks) : Len(d.tasks[k].nodes) > 0
-Quiet(hs) == \A n \in hs : LET d == Decide27(n, hs, {}, {}) IN ~Replicates(d) /\ d.del = "none"
-NoTasks(hs) == \A n \in hs : ~Replicates(Decide27(n, hs, {}, {}))
-n\* a check "replicates" when it hands the replicator a task with at least one candidate node. (With overlapping
-\* rules the code as found keeps calling the replicator with an EMPTY candidate list: a holder remembered from
-\* an earlier rule does not lower the shortage of a later rule - a phantom shortage that copies nothing.)
-Replicates(d) == \E k \in 1..Len(d.tasks) : Len(d.tasks[k].nodes) > 0
-Quiet(hs) == \A n \in hs : LET d == Decide27(n, hs, {}, {}) IN ~Replicates(d) /\ d.del = "none"
-NoTasks(hs) == \A n \in hs : ~Replicates(Decide27(n, hs, {}, {}))
- \* a check "replicates" when it hands the replicator a task with at least one candidate node. (With overlapping
-\* rules the code as found keeps calling the replicator with an EMPTY candidate list: a holder remembered from
-\* an earlier rule does not lower the shortage of a later rule - a phantom shortage that copies nothing.)
-Replicates(d) == \E k \in 1..Len(d.tasks) : Len(d.tasks[k].nodes) > 0
-Quiet(hs) == \A n \in hs : LET d == Decide27(n, hs, {}, {}) IN ~Replicates(d) /\ d.del = "none"
-NoTasks(hs) == \A n \in hs : ~Replicates(Decide27(n, hs, {}, {}))
-i\* a check "replicates" when it hands the replicator a task with at least one candidate node. (With overlapping
-\* rules the code as found keeps calling the replicator with an EMPTY candidate list: a holder remembered from
-\* an earlier rule does not lower the shortage of a later rule - a phantom shortage that copies nothing.)
-Replicates(d) == \E k \in 1..Len(d.tasks) : Len(d.tasks[k].nodes) > 0
-Quiet(hs) == \A n \in hs : LET d == Decide27(n, hs, {}, {}) IN ~Replicates(d) /\ d.del = "none"
-NoTasks(hs) == \A n \in hs : ~Replicates(Decide27(n, hs, {}, {}))
-n\* a check "replicates" when it hands the replicator a task with at least one candidate node. (With overlapping
-\* rules the code as found keeps calling the replicator with an EMPTY candidate list: a holder remembered from
-\* an earlier rule does not lower the shortage of a later rule - a phantom shortage that copies nothing.)
-Replicates(d) == \E k \in 1..Len(d.tasks) : Len(d.tasks[k].nodes) > 0
-Quiet(hs) == \A n \in hs : LET d == Decide27(n, hs, {}, {}) IN ~Replicates(d) /\ d.del = "none"
-NoTasks(hs) == \A n \in hs : ~Replicates(Decide27(n, hs, {}, {}))
- \* a check "replicates" when it hands the replicator a task with at least one candidate node. (With overlapping
-\* rules the code as found keeps calling the replicator with an EMPTY candidate list: a holder remembered from
-\* an earlier rule does not lower the shortage of a later rule - a phantom shortage that copies nothing.)
-Replicates(d) == \E k \in 1..Len(d.tasks) : Len(d.tasks[k].nodes) > 0
-Quiet(hs) == \A n \in hs : LET d == Decide27(n, hs, {}, {}) IN ~Replicates(d) /\ d.del = "none"
-NoTasks(hs) == \A n \in hs : ~Replicates(Decide27(n, hs, {}, {}))
-t\* a check "replicates" when it hands the replicator a task with at least one candidate node. (With overlapping
-\* rules the code as found keeps calling the replicator with an EMPTY candidate list: a holder remembered from
-\* an earlier rule does not lower the shortage of a later rule - a phantom shortage that copies nothing.)
-Replicates(d) == \E k \in 1..Len(d.tasks) : Len(d.tasks[k].nodes) > 0
-Quiet(hs) == \A n \in hs : LET d == Decide27(n, hs, {}, {}) IN ~Replicates(d) /\ d.del = "none"
-NoTasks(hs) == \A n \in hs : ~Replicates(Decide27(n, hs, {}, {}))
-h\* a check "replicates" when it hands the replicator a task with at least one candidate node. (With overlapping
-\* rules the code as found keeps calling the replicator with an EMPTY candidate list: a holder remembered from
-\* an earlier rule does not lower the shortage of a later rule - a phantom shortage that copies nothing.)
-Replicates(d) == \E k \in 1..Len(d.tasks) : Len(d.tasks[k].nodes) > 0
-Quiet(hs) == \A n \in hs : LET d == Decide27(n, hs, {}, {}) IN ~Replicates(d) /\ d.del = "none"
-NoTasks(hs) == \A n \in hs : ~Replicates(Decide27(n, hs, {}, {}))
-e\* a check "replicates" when it hands the replicator a task with at least one candidate node. (With overlapping
-\* rules the code as found keeps calling the replicator with an EMPTY candidate list: a holder remembered from
-\* an earlier rule does not lower the shortage of a later rule - a phantom shortage that copies nothing.)
-Replicates(d) == \E k \in 1..Len(d.tasks) : Len(d.tasks[k].nodes) > 0
-Quiet(hs) == \A n \in hs : LET d == Decide27(n, hs, {}, {}) IN ~Replicates(d) /\ d.del = "none"
-NoTasks(hs) == \A n \in hs : ~Replicates(Decide27(n, hs, {}, {}))
- \* a check "replicates" when it hands the replicator a task with at least one candidate node. (With overlapping
-\* rules the code as found keeps calling the replicator with an EMPTY candidate list: a holder remembered from
-\* an earlier rule does not lower the shortage of a later rule - a phantom shortage that copies nothing.)
-Replicates(d) == \E k \in 1..Len(d.tasks) : Len(d.tasks[k].nodes) > 0
-Quiet(hs) == \A n \in hs : LET d == Decide27(n, hs, {}, {}) IN ~Replicates(d) /\ d.del = "none"
-NoTasks(hs) == \A n \in hs : ~Replicates(Decide27(n, hs, {}, {}))
-l\* a check "replicates" when it hands the replicator a task with at least one candidate node. (With overlapping
-\* rules the code as found keeps calling the replicator with an EMPTY candidate list: a holder remembered from
-\* an earlier rule does not lower the shortage of a later rule - a phantom shortage that copies nothing.)
-Replicates(d) == \E k \in 1..Len(d.tasks) : Len(d.tasks[k].nodes) > 0
-Quiet(hs) == \A n \in hs : LET d == Decide27(n, hs, {}, {}) IN ~Replicates(d) /\ d.del = "none"
-NoTasks(hs) == \A n \in hs : ~Replicates(Decide27(n, hs, {}, {}))
-a\* a check "replicates" when it hands the replicator a task with at least one candidate node. (With overlapping
-\* rules the code as found keeps calling the replicator with an EMPTY candidate list: a holder remembered from
-\* an earlier rule does not lower the shortage of a later rule - a phantom shortage that copies nothing.)
-Replicates(d) == \E k \in 1..Len(d.tasks) : Len(d.tasks[k].nodes) > 0
-Quiet(hs) == \A n \in hs : LET d == Decide27(n, hs, {}, {}) IN ~Replicates(d) /\ d.del = "none"
-NoTasks(hs) == \A n \in hs : ~Replicates(Decide27(n, hs, {}, {}))
-s\* a check "replicates" when it hands the replicator a task with at least one candidate node. (With overlapping
-\* rules the code as found keeps calling the replicator with an EMPTY candidate list: a holder remembered from
-\* an earlier rule does not lower the shortage of a later rule - a phantom shortage that copies nothing.)
-Replicates(d) == \E k \in 1..Len(d.tasks) : Len(d.tasks[k].nodes) > 0
-Quiet(hs) == \A n \in hs : LET d == Decide27(n, hs, {}, {}) IN ~Replicates(d) /\ d.del = "none"
-NoTasks(hs) == \A n \in hs : ~Replicates(Decide27(n, hs, {}, {}))
-t\* a check "replicates" when it hands the replicator a task with at least one candidate node. (With overlapping
-\* rules the code as found keeps calling the replicator with an EMPTY candidate list: a holder remembered from
-\* an earlier rule does not lower the shortage of a later rule - a phantom shortage that copies nothing.)
-Replicates(d) == \E k \in 1..Len(d.tasks) : Len(d.tasks[k].nodes) > 0
-Quiet(hs) == \A n \in hs : LET d == Decide27(n, hs, {}, {}) IN ~Replicates(d) /\ d.del = "none"
-NoTasks(hs) == \A n \in hs : ~Replicates(Decide27(n, hs, {}, {}))
- \* a check "replicates" when it hands the replicator a task with at least one candidate node. (With overlapping
-\* rules the code as found keeps calling the replicator with an EMPTY candidate list: a holder remembered from
-\* an earlier rule does not lower the shortage of a later rule - a phantom shortage that copies nothing.)
-Replicates(d) == \E k \in 1..Len(d.tasks) : Len(d.tasks[k].nodes) > 0
-Quiet(hs) == \A n \in hs : LET d == Decide27(n, hs, {}, {}) IN ~Replicates(d) /\ d.del = "none"
-NoTasks(hs) == \A n \in hs : ~Replicates(Decide27(n, hs, {}, {}))
-c\* a check "replicates" when it hands the replicator a task with at least one candidate node. (With overlapping
-\* rules the code as found keeps calling the replicator with an EMPTY candidate list: a holder remembered from
-\* an earlier rule does not lower the shortage of a later rule - a phantom shortage that copies nothing.)
-Replicates(d) == \E k \in 1..Len(d.tasks) : Len(d.tasks[k].nodes) > 0
-Quiet(hs) == \A n \in hs : LET d == Decide27(n, hs, {}, {}) IN ~Replicates(d) /\ d.del = "none"
-NoTasks(hs) == \A n \in hs : ~Replicates(Decide27(n, hs, {}, {}))
-h\* a check "replicates" when it hands the replicator a task with at least one candidate node. (With overlapping
-\* rules the code as found keeps calling the replicator with an EMPTY candidate list: a holder remembered from
-\* an earlier rule does not lower the shortage of a later rule - a phantom shortage that copies nothing.)
-Replicates(d) == \E k \in 1..Len(d.tasks) : Len(d.tasks[k].nodes) > 0
-Quiet(hs) == \A n \in hs : LET d == Decide27(n, hs, {}, {}) IN ~Replicates(d) /\ d.del = "none"
-NoTasks(hs) == \A n \in hs : ~Replicates(Decide27(n, hs, {}, {}))
-e\* a check "replicates" when it hands the replicator a task with at least one candidate node. (With overlapping
-\* rules the code as found keeps calling the replicator with an EMPTY candidate list: a holder remembered from
-\* an earlier rule does not lower the shortage of a later rule - a phantom shortage that copies nothing.)
-Replicates(d) == \E k \in 1..Len(d.tasks) : Len(d.tasks[k].nodes) > 0
-Quiet(hs) == \A n \in hs : LET d == Decide27(n, hs, {}, {}) IN ~Replicates(d) /\ d.del = "none"
-NoTasks(hs) == \A n \in hs : ~Replicates(Decide27(n, hs, {}, {}))
-c\* a check "replicates" when it hands the replicator a task with at least one candidate node. (With overlapping
-\* rules the code as found keeps calling the replicator with an EMPTY candidate list: a holder remembered from
-\* an earlier rule does not lower the shortage of a later rule - a phantom shortage that copies nothing.)
-Replicates(d) == \E k \in 1..Len(d.tasks) : Len(d.tasks[k].nodes) > 0
-Quiet(hs) == \A n \in hs : LET d == Decide27(n, hs, {}, {}) IN ~Replicates(d) /\ d.del = "none"
-NoTasks(hs) == \A n \in hs : ~Replicates(Decide27(n, hs, {}, {}))
-k\* a check "replicates" when it hands the replicator a task with at least one candidate node. (With overlapping
-\* rules the code as found keeps calling the replicator with an EMPTY candidate list: a holder remembered from
-\* an earlier rule does not lower the shortage of a later rule - a phantom shortage that copies nothing.)
-Replicates(d) == \E k \in 1..Len(d.tasks) : Len(d.tasks[k].nodes) > 0
-Quiet(hs) == \A n \in hs : LET d == Decide27(n, hs, {}, {}) IN ~Replicates(d) /\ d.del = "none"
-NoTasks(hs) == \A n \in hs : ~Replicates(Decide27(n, hs, {}, {}))
-
-\* a check "replicates" when it hands the replicator a task with at least one candidate node. (With overlapping
-\* rules the code as found keeps calling the replicator with an EMPTY candidate list: a holder remembered from
-\* an earlier rule does not lower the shortage of a later rule - a phantom shortage that copies nothing.)
-Replicates(d) == \E k \in 1..Len(d.tasks) : Len(d.tasks[k].nodes) > 0
-Quiet(hs) == \A n \in hs : LET d == Decide27(n, hs, {}, {}) IN ~Replicates(d) /\ d.del = "none"
-NoTasks(hs) == \A n \in hs : ~Replicates(Decide27(n, hs, {}, {}))
-T\* a check "replicates" when it hands the replicator a task with at least one candidate node. (With overlapping
-\* rules the code as found keeps calling the replicator with an EMPTY candidate list: a holder remembered from
-\* an earlier rule does not lower the shortage of a later rule - a phantom shortage that copies nothing.)
-Replicates(d) == \E k \in 1..Len(d.tasks) : Len(d.tasks[k].nodes) > 0
-Quiet(hs) == \A n \in hs : LET d == Decide27(n, hs, {}, {}) IN ~Replicates(d) /\ d.del = "none"
-NoTasks(hs) == \A n \in hs : ~Replicates(Decide27(n, hs, {}, {}))
-a\* a check "replicates" when it hands the replicator a task with at least one candidate node. (With overlapping
-\* rules the code as found keeps calling the replicator with an EMPTY candidate list: a holder remembered from
-\* an earlier rule does not lower the shortage of a later rule - a phantom shortage that copies nothing.)
-Replicates(d) == \E k \in 1..Len(d.tasks) : Len(d.tasks[k].nodes) > 0
-Quiet(hs) == \A n \in hs : LET d == Decide27(n, hs, {}, {}) IN ~Replicates(d) /\ d.del = "none"
-NoTasks(hs) == \A n \in hs : ~Replicates(Decide27(n, hs, {}, {}))
-s\* a check "replicates" when it hands the replicator a task with at least one candidate node. (With overlapping
-\* rules the code as found keeps calling the replicator with an EMPTY candidate list: a holder remembered from
-\* an earlier rule does not lower the shortage of a later rule - a phantom shortage that copies nothing.)
-Replicates(d) == \E k \in 1..Len(d.tasks) : Len(d.tasks[k].nodes) > 0
-Quiet(hs) == \A n \in hs : LET d == Decide27(n, hs, {}, {}) IN ~Replicates(d) /\ d.del = "none"
-NoTasks(hs) == \A n \in hs : ~Replicates(Decide27(n, hs, {}, {}))
-k\* a check "replicates" when it hands the replicator a task with at least one candidate node. (With overlapping
-\* rules the code as found keeps calling the replicator with an EMPTY candidate list: a holder remembered from
-\* an earlier rule does not lower the shortage of a later rule - a phantom shortage that copies nothing.)
-Replicates(d) == \E k \in 1..Len(d.tasks) : Len(d.tasks[k].nodes) > 0
-Quiet(hs) == \A n \in hs : LET d == Decide27(n, hs, {}, {}) IN ~Replicates(d) /\ d.del = "none"
-NoTasks(hs) == \A n \in hs : ~Replicates(Decide27(n, hs, {}, {}))
-O\* a check "replicates" when it hands the replicator a task with at least one candidate node. (With overlapping
-\* rules the code as found keeps calling the replicator with an EMPTY candidate list: a holder remembered from
-\* an earlier rule does not lower the shortage of a later rule - a phantom shortage that copies nothing.)
-Replicates(d) == \E k \in 1..Len(d.tasks) : Len(d.tasks[k].nodes) > 0
-Quiet(hs) == \A n \in hs : LET d == Decide27(n, hs, {}, {}) IN ~Replicates(d) /\ d.del = "none"
-NoTasks(hs) == \A n \in hs : ~Replicates(Decide27(n, hs, {}, {}))
-K\* a check "replicates" when it hands the replicator a task with at least one candidate node. (With overlapping
-\* rules the code as found keeps calling the replicator with an EMPTY candidate list: a holder remembered from
-\* an earlier rule does not lower the shortage of a later rule - a phantom shortage that copies nothing.)
-Replicates(d) == \E k \in 1..Len(d.tasks) : Len(d.tasks[k].nodes) > 0
-Quiet(hs) == \A n \in hs : LET d == Decide27(n, hs, {}, {}) IN ~Replicates(d) /\ d.del = "none"
-NoTasks(hs) == \A n \in hs : ~Replicates(Decide27(n, hs, {}, {}))
- \* a check "replicates" when it hands the replicator a task with at least one candidate node. (With overlapping
-\* rules the code as found keeps calling the replicator with an EMPTY candidate list: a holder remembered from
-\* an earlier rule does not lower the shortage of a later rule - a phantom shortage that copies nothing.)
-Replicates(d) == \E k \in 1..Len(d.tasks) : Len(d.tasks[k].nodes) > 0
-Quiet(hs) == \A n \in hs : LET d == Decide27(n, hs, {}, {}) IN ~Replicates(d) /\ d.del = "none"
-NoTasks(hs) == \A n \in hs : ~Replicates(Decide27(n, hs, {}, {}))
-=\* a check "replicates" when it hands the replicator a task with at least one candidate node. (With overlapping
-\* rules the code as found keeps calling the replicator with an EMPTY candidate list: a holder remembered from
-\* an earlier rule does not lower the shortage of a later rule - a phantom shortage that copies nothing.)
-Replicates(d) == \E k \in 1..Len(d.tasks) : Len(d.tasks[k].nodes) > 0
-Quiet(hs) == \A n \in hs : LET d == Decide27(n, hs, {}, {}) IN ~Replicates(d) /\ d.del = "none"
-NoTasks(hs) == \A n \in hs : ~Replicates(Decide27(n, hs, {}, {}))
-=\* a check "replicates" when it hands the replicator a task with at least one candidate node. (With overlapping
-\* rules the code as found keeps calling the replicator with an EMPTY candidate list: a holder remembered from
-\* an earlier rule does not lower the shortage of a later rule - a phantom shortage that copies nothing.)
-Replicates(d) == \E k \in 1..Len(d.tasks) : Len(d.tasks[k].nodes) > 0
-Quiet(hs) == \A n \in hs : LET d == Decide27(n, hs, {}, {}) IN ~Replicates(d) /\ d.del = "none"
-NoTasks(hs) == \A n \in hs : ~Replicates(Decide27(n, hs, {}, {}))
- \* a check "replicates" when it hands the replicator a task with at least one candidate node. (With overlapping
-\* rules the code as found keeps calling the replicator with an EMPTY candidate list: a holder remembered from
-\* an earlier rule does not lower the shortage of a later rule - a phantom shortage that copies nothing.)
-Replicates(d) == \E k \in 1..Len(d.tasks) : Len(d.tasks[k].nodes) > 0
-Quiet(hs) == \A n \in hs : LET d == Decide27(n, hs, {}, {}) IN ~Replicates(d) /\ d.del = "none"
-NoTasks(hs) == \A n \in hs : ~Replicates(Decide27(n, hs, {}, {}))
-\\* a check "replicates" when it hands the replicator a task with at least one candidate node. (With overlapping
-\* rules the code as found keeps calling the replicator with an EMPTY candidate list: a holder remembered from
-\* an earlier rule does not lower the shortage of a later rule - a phantom shortage that copies nothing.)
-Replicates(d) == \E k \in 1..Len(d.tasks) : Len(d.tasks[k].nodes) > 0
-Quiet(hs) == \A n \in hs : LET d == Decide27(n, hs, {}, {}) IN ~Replicates(d) /\ d.del = "none"
-NoTasks(hs) == \A n \in hs : ~Replicates(Decide27(n, hs, {}, {}))
-A\* a check "replicates" when it hands the replicator a task with at least one candidate node. (With overlapping
-\* rules the code as found keeps calling the replicator with an EMPTY candidate list: a holder remembered from
-\* an earlier rule does not lower the shortage of a later rule - a phantom shortage that copies nothing.)
-Replicates(d) == \E k \in 1..Len(d.tasks) : Len(d.tasks[k].nodes) > 0
-Quiet(hs) == \A n \in hs : LET d == Decide27(n, hs, {}, {}) IN ~Replicates(d) /\ d.del = "none"
-NoTasks(hs) == \A n \in hs : ~Replicates(Decide27(n, hs, {}, {}))
- \* a check "replicates" when it hands the replicator a task with at least one candidate node. (With overlapping
-\* rules the code as found keeps calling the replicator with an EMPTY candidate list: a holder remembered from
-\* an earlier rule does not lower the shortage of a later rule - a phantom shortage that copies nothing.)
-Replicates(d) == \E k \in 1..Len(d.tasks) : Len(d.tasks[k].nodes) > 0
-Quiet(hs) == \A n \in hs : LET d == Decide27(n, hs, {}, {}) IN ~Replicates(d) /\ d.del = "none"
-NoTasks(hs) == \A n \in hs : ~Replicates(Decide27(n, hs, {}, {}))
-k\* a check "replicates" when it hands the replicator a task with at least one candidate node. (With overlapping
-\* rules the code as found keeps calling the replicator with an EMPTY candidate list: a holder remembered from
-\* an earlier rule does not lower the shortage of a later rule - a phantom shortage that copies nothing.)
-Replicates(d) == \E k \in 1..Len(d.tasks) : Len(d.tasks[k].nodes) > 0
-Quiet(hs) == \A n \in hs : LET d == Decide27(n, hs, {}, {}) IN ~Replicates(d) /\ d.del = "none"
-NoTasks(hs) == \A n \in hs : ~Replicates(Decide27(n, hs, {}, {}))
- \* a check "replicates" when it hands the replicator a task with at least one candidate node. (With overlapping
-\* rules the code as found keeps calling the replicator with an EMPTY candidate list: a holder remembered from
-\* an earlier rule does not lower the shortage of a later rule - a phantom shortage that copies nothing.)
-Replicates(d) == \E k \in 1..Len(d.tasks) : Len(d.tasks[k].nodes) > 0
-Quiet(hs) == \A n \in hs : LET d == Decide27(n, hs, {}, {}) IN ~Replicates(d) /\ d.del = "none"
-NoTasks(hs) == \A n \in hs : ~Replicates(Decide27(n, hs, {}, {}))
-\\* a check "replicates" when it hands the replicator a task with at least one candidate node. (With overlapping
-\* rules the code as found keeps calling the replicator with an EMPTY candidate list: a holder remembered from
-\* an earlier rule does not lower the shortage of a later rule - a phantom shortage that copies nothing.)
-Replicates(d) == \E k \in 1..Len(d.tasks) : Len(d.tasks[k].nodes) > 0
-Quiet(hs) == \A n \in hs : LET d == Decide27(n, hs, {}, {}) IN ~Replicates(d) /\ d.del = "none"
-NoTasks(hs) == \A n \in hs : ~Replicates(Decide27(n, hs, {}, {}))
-i\* a check "replicates" when it hands the replicator a task with at least one candidate node. (With overlapping
-\* rules the code as found keeps calling the replicator with an EMPTY candidate list: a holder remembered from
-\* an earlier rule does not lower the shortage of a later rule - a phantom shortage that copies nothing.)
-Replicates(d) == \E k \in 1..Len(d.tasks) : Len(d.tasks[k].nodes) > 0
-Quiet(hs) == \A n \in hs : LET d == Decide27(n, hs, {}, {}) IN ~Replicates(d) /\ d.del = "none"
-NoTasks(hs) == \A n \in hs : ~Replicates(Decide27(n, hs, {}, {}))
-n\* a check "replicates" when it hands the replicator a task with at least one candidate node. (With overlapping
-\* rules the code as found keeps calling the replicator with an EMPTY candidate list: a holder remembered from
-\* an earlier rule does not lower the shortage of a later rule - a phantom shortage that copies nothing.)
-Replicates(d) == \E k \in 1..Len(d.tasks) : Len(d.tasks[k].nodes) > 0
-Quiet(hs) == \A n \in hs : LET d == Decide27(n, hs, {}, {}) IN ~Replicates(d) /\ d.del = "none"
-NoTasks(hs) == \A n \in hs : ~Replicates(Decide27(n, hs, {}, {}))
- \* a check "replicates" when it hands the replicator a task with at least one candidate node. (With overlapping
-\* rules the code as found keeps calling the replicator with an EMPTY candidate list: a holder remembered from
-\* an earlier rule does not lower the shortage of a later rule - a phantom shortage that copies nothing.)
-Replicates(d) == \E k \in 1..Len(d.tasks) : Len(d.tasks[k].nodes) > 0
-Quiet(hs) == \A n \in hs : LET d == Decide27(n, hs, {}, {}) IN ~Replicates(d) /\ d.del = "none"
-NoTasks(hs) == \A n \in hs : ~Replicates(Decide27(n, hs, {}, {}))
-1\* a check "replicates" when it hands the replicator a task with at least one candidate node. (With overlapping
-\* rules the code as found keeps calling the replicator with an EMPTY candidate list: a holder remembered from
-\* an earlier rule does not lower the shortage of a later rule - a phantom shortage that copies nothing.)
-Replicates(d) == \E k \in 1..Len(d.tasks) : Len(d.tasks[k].nodes) > 0
-Quiet(hs) == \A n \in hs : LET d == Decide27(n, hs, {}, {}) IN ~Replicates(d) /\ d.del = "none"
-NoTasks(hs) == \A n \in hs : ~Replicates(Decide27(n, hs, {}, {}))
-.\* a check "replicates" when it hands the replicator a task with at least one candidate node. (With overlapping
-\* rules the code as found keeps calling the replicator with an EMPTY candidate list: a holder remembered from
-\* an earlier rule does not lower the shortage of a later rule - a phantom shortage that copies nothing.)
-Replicates(d) == \E k \in 1..Len(d.tasks) : Len(d.tasks[k].nodes) > 0
-Quiet(hs) == \A n \in hs : LET d == Decide27(n, hs, {}, {}) IN ~Replicates(d) /\ d.del = "none"
-NoTasks(hs) == \A n \in hs : ~Replicates(Decide27(n, hs, {}, {}))
-.\* a check "replicates" when it hands the replicator a task with at least one candidate node. (With overlapping
-\* rules the code as found keeps calling the replicator with an EMPTY candidate list: a holder remembered from
-\* an earlier rule does not lower the shortage of a later rule - a phantom shortage that copies nothing.)
-Replicates(d) == \E k \in 1..Len(d.tasks) : Len(d.tasks[k].nodes) > 0
-Quiet(hs) == \A n \in hs : LET d == Decide27(n, hs, {}, {}) IN ~Replicates(d) /\ d.del = "none"
-NoTasks(hs) == \A n \in hs : ~Replicates(Decide27(n, hs, {}, {}))
-L\* a check "replicates" when it hands the replicator a task with at least one candidate node. (With overlapping
-\* rules the code as found keeps calling the replicator with an EMPTY candidate list: a holder remembered from
-\* an earlier rule does not lower the shortage of a later rule - a phantom shortage that copies nothing.)
-Replicates(d) == \E k \in 1..Len(d.tasks) : Len(d.tasks[k].nodes) > 0
-Quiet(hs) == \A n \in hs : LET d == Decide27(n, hs, {}, {}) IN ~Replicates(d) /\ d.del = "none"
-NoTasks(hs) == \A n \in hs : ~Replicates(Decide27(n, hs, {}, {}))
-e\* a check "replicates" when it hands the replicator a task with at least one candidate node. (With overlapping
-\* rules the code as found keeps calling the replicator with an EMPTY candidate list: a holder remembered from
-\* an earlier rule does not lower the shortage of a later rule - a phantom shortage that copies nothing.)
-Replicates(d) == \E k \in 1..Len(d.tasks) : Len(d.tasks[k].nodes) > 0
-Quiet(hs) == \A n \in hs : LET d == Decide27(n, hs, {}, {}) IN ~Replicates(d) /\ d.del = "none"
-NoTasks(hs) == \A n \in hs : ~Replicates(Decide27(n, hs, {}, {}))
-n\* a check "replicates" when it hands the replicator a task with at least one candidate node. (With overlapping
-\* rules the code as found keeps calling the replicator with an EMPTY candidate list: a holder remembered from
-\* an earlier rule does not lower the shortage of a later rule - a phantom shortage that copies nothing.)
-Replicates(d) == \E k \in 1..Len(d.tasks) : Len(d.tasks[k].nodes) > 0
-Quiet(hs) == \A n \in hs : LET d == Decide27(n, hs, {}, {}) IN ~Replicates(d) /\ d.del = "none"
-NoTasks(hs) == \A n \in hs : ~Replicates(Decide27(n, hs, {}, {}))
-(\* a check "replicates" when it hands the replicator a task with at least one candidate node. (With overlapping
-\* rules the code as found keeps calling the replicator with an EMPTY candidate list: a holder remembered from
-\* an earlier rule does not lower the shortage of a later rule - a phantom shortage that copies nothing.)
-Replicates(d) == \E k \in 1..Len(d.tasks) : Len(d.tasks[k].nodes) > 0
-Quiet(hs) == \A n \in hs : LET d == Decide27(n, hs, {}, {}) IN ~Replicates(d) /\ d.del = "none"
-NoTasks(hs) == \A n \in hs : ~Replicates(Decide27(n, hs, {}, {}))
-l\* a check "replicates" when it hands the replicator a task with at least one candidate node. (With overlapping
-\* rules the code as found keeps calling the replicator with an EMPTY candidate list: a holder remembered from
-\* an earlier rule does not lower the shortage of a later rule - a phantom shortage that copies nothing.)
-Replicates(d) == \E k \in 1..Len(d.tasks) : Len(d.tasks[k].nodes) > 0
-Quiet(hs) == \A n \in hs : LET d == Decide27(n, hs, {}, {}) IN ~Replicates(d) /\ d.del = "none"
-NoTasks(hs) == \A n \in hs : ~Replicates(Decide27(n, hs, {}, {}))
-a\* a check "replicates" when it hands the replicator a task with at least one candidate node. (With overlapping
-\* rules the code as found keeps calling the replicator with an EMPTY candidate list: a holder remembered from
-\* an earlier rule does not lower the shortage of a later rule - a phantom shortage that copies nothing.)
-Replicates(d) == \E k \in 1..Len(d.tasks) : Len(d.tasks[k].nodes) > 0
-Quiet(hs) == \A n \in hs : LET d == Decide27(n, hs, {}, {}) IN ~Replicates(d) /\ d.del = "none"
-NoTasks(hs) == \A n \in hs : ~Replicates(Decide27(n, hs, {}, {}))
-s\* a check "replicates" when it hands the replicator a task with at least one candidate node. (With overlapping
-\* rules the code as found keeps calling the replicator with an EMPTY candidate list: a holder remembered from
-\* an earlier rule does not lower the shortage of a later rule - a phantom shortage that copies nothing.)
-Replicates(d) == \E k \in 1..Len(d.tasks) : Len(d.tasks[k].nodes) > 0
-Quiet(hs) == \A n \in hs : LET d == Decide27(n, hs, {}, {}) IN ~Replicates(d) /\ d.del = "none"
-NoTasks(hs) == \A n \in hs : ~Replicates(Decide27(n, hs, {}, {}))
-t\* a check "replicates" when it hands the replicator a task with at least one candidate node. (With overlapping
-\* rules the code as found keeps calling the replicator with an EMPTY candidate list: a holder remembered from
-\* an earlier rule does not lower the shortage of a later rule - a phantom shortage that copies nothing.)
-Replicates(d) == \E k \in 1..Len(d.tasks) : Len(d.tasks[k].nodes) > 0
-Quiet(hs) == \A n \in hs : LET d == Decide27(n, hs, {}, {}) IN ~Replicates(d) /\ d.del = "none"
-NoTasks(hs) == \A n \in hs : ~Replicates(Decide27(n, hs, {}, {}))
-.\* a check "replicates" when it hands the replicator a task with at least one candidate node. (With overlapping
-\* rules the code as found keeps calling the replicator with an EMPTY candidate list: a holder remembered from
-\* an earlier rule does not lower the shortage of a later rule - a phantom shortage that copies nothing.)
-Replicates(d) == \E k \in 1..Len(d.tasks) : Len(d.tasks[k].nodes) > 0
-Quiet(hs) == \A n \in hs : LET d == Decide27(n, hs, {}, {}) IN ~Replicates(d) /\ d.del = "none"
-NoTasks(hs) == \A n \in hs : ~Replicates(Decide27(n, hs, {}, {}))
-t\* a check "replicates" when it hands the replicator a task with at least one candidate node. (With overlapping
-\* rules the code as found keeps calling the replicator with an EMPTY candidate list: a holder remembered from
-\* an earlier rule does not lower the shortage of a later rule - a phantom shortage that copies nothing.)
-Replicates(d) == \E k \in 1..Len(d.tasks) : Len(d.tasks[k].nodes) > 0
-Quiet(hs) == \A n \in hs : LET d == Decide27(n, hs, {}, {}) IN ~Replicates(d) /\ d.del = "none"
-NoTasks(hs) == \A n \in hs : ~Replicates(Decide27(n, hs, {}, {}))
-a\* a check "replicates" when it hands the replicator a task with at least one candidate node. (With overlapping
-\* rules the code as found keeps calling the replicator with an EMPTY candidate list: a holder remembered from
-\* an earlier rule does not lower the shortage of a later rule - a phantom shortage that copies nothing.)
-Replicates(d) == \E k \in 1..Len(d.tasks) : Len(d.tasks[k].nodes) > 0
-Quiet(hs) == \A n \in hs : LET d == Decide27(n, hs, {}, {}) IN ~Replicates(d) /\ d.del = "none"
-NoTasks(hs) == \A n \in hs : ~Replicates(Decide27(n, hs, {}, {}))
-s\* a check "replicates" when it hands the replicator a task with at least one candidate node. (With overlapping
-\* rules the code as found keeps calling the replicator with an EMPTY candidate list: a holder remembered from
-\* an earlier rule does not lower the shortage of a later rule - a phantom shortage that copies nothing.)
-Replicates(d) == \E k \in 1..Len(d.tasks) : Len(d.tasks[k].nodes) > 0
-Quiet(hs) == \A n \in hs : LET d == Decide27(n, hs, {}, {}) IN ~Replicates(d) /\ d.del = "none"
-NoTasks(hs) == \A n \in hs : ~Replicates(Decide27(n, hs, {}, {}))
-k\* a check "replicates" when it hands the replicator a task with at least one candidate node. (With overlapping
-\* rules the code as found keeps calling the replicator with an EMPTY candidate list: a holder remembered from
-\* an earlier rule does not lower the shortage of a later rule - a phantom shortage that copies nothing.)
-Replicates(d) == \E k \in 1..Len(d.tasks) : Len(d.tasks[k].nodes) > 0
-Quiet(hs) == \A n \in hs : LET d == Decide27(n, hs, {}, {}) IN ~Replicates(d) /\ d.del = "none"
-NoTasks(hs) == \A n \in hs : ~Replicates(Decide27(n, hs, {}, {}))
-s\* a check "replicates" when it hands the replicator a task with at least one candidate node. (With overlapping
-\* rules the code as found keeps calling the replicator with an EMPTY candidate list: a holder remembered from
-\* an earlier rule does not lower the shortage of a later rule - a phantom shortage that copies nothing.)
-Replicates(d) == \E k \in 1..Len(d.tasks) : Len(d.tasks[k].nodes) > 0
-Quiet(hs) == \A n \in hs : LET d == Decide27(n, hs, {}, {}) IN ~Replicates(d) /\ d.del = "none"
-NoTasks(hs) == \A n \in hs : ~Replicates(Decide27(n, hs, {}, {}))
-)\* a check "replicates" when it hands the replicator a task with at least one candidate node. (With overlapping
-\* rules the code as found keeps calling the replicator with an EMPTY candidate list: a holder remembered from
-\* an earlier rule does not lower the shortage of a later rule - a phantom shortage that copies nothing.)
-Replicates(d) == \E k \in 1..Len(d.tasks) : Len(d.tasks[k].nodes) > 0
-Quiet(hs) == \A n \in hs : LET d == Decide27(n, hs, {}, {}) IN ~Replicates(d) /\ d.del = "none"
-NoTasks(hs) == \A n \in hs : ~Replicates(Decide27(n, hs, {}, {}))
- \* a check "replicates" when it hands the replicator a task with at least one candidate node. (With overlapping
-\* rules the code as found keeps calling the replicator with an EMPTY candidate list: a holder remembered from
-\* an earlier rule does not lower the shortage of a later rule - a phantom shortage that copies nothing.)
-Replicates(d) == \E k \in 1..Len(d.tasks) : Len(d.tasks[k].nodes) > 0
-Quiet(hs) == \A n \in hs : LET d == Decide27(n, hs, {}, {}) IN ~Replicates(d) /\ d.del = "none"
-NoTasks(hs) == \A n \in hs : ~Replicates(Decide27(n, hs, {}, {}))
-:\* a check "replicates" when it hands the replicator a task with at least one candidate node. (With overlapping
-\* rules the code as found keeps calling the replicator with an EMPTY candidate list: a holder remembered from
-\* an earlier rule does not lower the shortage of a later rule - a phantom shortage that copies nothing.)
-Replicates(d) == \E k \in 1..Len(d.tasks) : Len(d.tasks[k].nodes) > 0
-Quiet(hs) == \A n \in hs : LET d == Decide27(n, hs, {}, {}) IN ~Replicates(d) /\ d.del = "none"
-NoTasks(hs) == \A n \in hs : ~Replicates(Decide27(n, hs, {}, {}))
-
-\* a check "replicates" when it hands the replicator a task with at least one candidate node. (With overlapping
-\* rules the code as found keeps calling the replicator with an EMPTY candidate list: a holder remembered from
-\* an earlier rule does not lower the shortage of a later rule - a phantom shortage that copies nothing.)
-Replicates(d) == \E k \in 1..Len(d.tasks) : Len(d.tasks[k].nodes) > 0
-Quiet(hs) == \A n \in hs : LET d == Decide27(n, hs, {}, {}) IN ~Replicates(d) /\ d.del = "none"
-NoTasks(hs) == \A n \in hs : ~Replicates(Decide27(n, hs, {}, {}))
- \* a check "replicates" when it hands the replicator a task with at least one candidate node. (With overlapping
-\* rules the code as found keeps calling the replicator with an EMPTY candidate list: a holder remembered from
-\* an earlier rule does not lower the shortage of a later rule - a phantom shortage that copies nothing.)
-Replicates(d) == \E k \in 1..Len(d.tasks) : Len(d.tasks[k].nodes) > 0
-Quiet(hs) == \A n \in hs : LET d == Decide27(n, hs, {}, {}) IN ~Replicates(d) /\ d.del = "none"
-NoTasks(hs) == \A n \in hs : ~Replicates(Decide27(n, hs, {}, {}))
- \* a check "replicates" when it hands the replicator a task with at least one candidate node. (With overlapping
-\* rules the code as found keeps calling the replicator with an EMPTY candidate list: a holder remembered from
-\* an earlier rule does not lower the shortage of a later rule - a phantom shortage that copies nothing.)
-Replicates(d) == \E k \in 1..Len(d.tasks) : Len(d.tasks[k].nodes) > 0
-Quiet(hs) == \A n \in hs : LET d == Decide27(n, hs, {}, {}) IN ~Replicates(d) /\ d.del = "none"
-NoTasks(hs) == \A n \in hs : ~Replicates(Decide27(n, hs, {}, {}))
- \* a check "replicates" when it hands the replicator a task with at least one candidate node. (With overlapping
-\* rules the code as found keeps calling the replicator with an EMPTY candidate list: a holder remembered from
-\* an earlier rule does not lower the shortage of a later rule - a phantom shortage that copies nothing.)
-Replicates(d) == \E k \in 1..Len(d.tasks) : Len(d.tasks[k].nodes) > 0
-Quiet(hs) == \A n \in hs : LET d == Decide27(n, hs, {}, {}) IN ~Replicates(d) /\ d.del = "none"
-NoTasks(hs) == \A n \in hs : ~Replicates(Decide27(n, hs, {}, {}))
- \* a check "replicates" when it hands the replicator a task with at least one candidate node. (With overlapping
-\* rules the code as found keeps calling the replicator with an EMPTY candidate list: a holder remembered from
-\* an earlier rule does not lower the shortage of a later rule - a phantom shortage that copies nothing.)
-Replicates(d) == \E k \in 1..Len(d.tasks) : Len(d.tasks[k].nodes) > 0
-Quiet(hs) == \A n \in hs : LET d == Decide27(n, hs, {}, {}) IN ~Replicates(d) /\ d.del = "none"
-NoTasks(hs) == \A n \in hs : ~Replicates(Decide27(n, hs, {}, {}))
- \* a check "replicates" when it hands the replicator a task with at least one candidate node. (With overlapping
-\* rules the code as found keeps calling the replicator with an EMPTY candidate list: a holder remembered from
-\* an earlier rule does not lower the shortage of a later rule - a phantom shortage that copies nothing.)
-Replicates(d) == \E k \in 1..Len(d.tasks) : Len(d.tasks[k].nodes) > 0
-Quiet(hs) == \A n \in hs : LET d == Decide27(n, hs, {}, {}) IN ~Replicates(d) /\ d.del = "none"
-NoTasks(hs) == \A n \in hs : ~Replicates(Decide27(n, hs, {}, {}))
- \* a check "replicates" when it hands the replicator a task with at least one candidate node. (With overlapping
-\* rules the code as found keeps calling the replicator with an EMPTY candidate list: a holder remembered from
-\* an earlier rule does not lower the shortage of a later rule - a phantom shortage that copies nothing.)
-Replicates(d) == \E k \in 1..Len(d.tasks) : Len(d.tasks[k].nodes) > 0
-Quiet(hs) == \A n \in hs : LET d == Decide27(n, hs, {}, {}) IN ~Replicates(d) /\ d.del = "none"
-NoTasks(hs) == \A n \in hs : ~Replicates(Decide27(n, hs, {}, {}))
- \* a check "replicates" when it hands the replicator a task with at least one candidate node. (With overlapping
-\* rules the code as found keeps calling the replicator with an EMPTY candidate list: a holder remembered from
-\* an earlier rule does not lower the shortage of a later rule - a phantom shortage that copies nothing.)
-Replicates(d) == \E k \in 1..Len(d.tasks) : Len(d.tasks[k].nodes) > 0
-Quiet(hs) == \A n \in hs : LET d == Decide27(n, hs, {}, {}) IN ~Replicates(d) /\ d.del = "none"
-NoTasks(hs) == \A n \in hs : ~Replicates(Decide27(n, hs, {}, {}))
- \* a check "replicates" when it hands the replicator a task with at least one candidate node. (With overlapping
-\* rules the code as found keeps calling the replicator with an EMPTY candidate list: a holder remembered from
-\* an earlier rule does not lower the shortage of a later rule - a phantom shortage that copies nothing.)
-Replicates(d) == \E k \in 1..Len(d.tasks) : Len(d.tasks[k].nodes) > 0
-Quiet(hs) == \A n \in hs : LET d == Decide27(n, hs, {}, {}) IN ~Replicates(d) /\ d.del = "none"
-NoTasks(hs) == \A n \in hs : ~Replicates(Decide27(n, hs, {}, {}))
- \* a check "replicates" when it hands the replicator a task with at least one candidate node. (With overlapping
-\* rules the code as found keeps calling the replicator with an EMPTY candidate list: a holder remembered from
-\* an earlier rule does not lower the shortage of a later rule - a phantom shortage that copies nothing.)
-Replicates(d) == \E k \in 1..Len(d.tasks) : Len(d.tasks[k].nodes) > 0
-Quiet(hs) == \A n \in hs : LET d == Decide27(n, hs, {}, {}) IN ~Replicates(d) /\ d.del = "none"
-NoTasks(hs) == \A n \in hs : ~Replicates(Decide27(n, hs, {}, {}))
- \* a check "replicates" when it hands the replicator a task with at least one candidate node. (With overlapping
-\* rules the code as found keeps calling the replicator with an EMPTY candidate list: a holder remembered from
-\* an earlier rule does not lower the shortage of a later rule - a phantom shortage that copies nothing.)
-Replicates(d) == \E k \in 1..Len(d.tasks) : Len(d.tasks[k].nodes) > 0
-Quiet(hs) == \A n \in hs : LET d == Decide27(n, hs, {}, {}) IN ~Replicates(d) /\ d.del = "none"
-NoTasks(hs) == \A n \in hs : ~Replicates(Decide27(n, hs, {}, {}))
- \* a check "replicates" when it hands the replicator a task with at least one candidate node. (With overlapping
-\* rules the code as found keeps calling the replicator with an EMPTY candidate list: a holder remembered from
-\* an earlier rule does not lower the shortage of a later rule - a phantom shortage that copies nothing.)
-Replicates(d) == \E k \in 1..Len(d.tasks) : Len(d.tasks[k].nodes) > 0
-Quiet(hs) == \A n \in hs : LET d == Decide27(n, hs, {}, {}) IN ~Replicates(d) /\ d.del = "none"
-NoTasks(hs) == \A n \in hs : ~Replicates(Decide27(n, hs, {}, {}))
- \* a check "replicates" when it hands the replicator a task with at least one candidate node. (With overlapping
-\* rules the code as found keeps calling the replicator with an EMPTY candidate list: a holder remembered from
-\* an earlier rule does not lower the shortage of a later rule - a phantom shortage that copies nothing.)
-Replicates(d) == \E k \in 1..Len(d.tasks) : Len(d.tasks[k].nodes) > 0
-Quiet(hs) == \A n \in hs : LET d == Decide27(n, hs, {}, {}) IN ~Replicates(d) /\ d.del = "none"
-NoTasks(hs) == \A n \in hs : ~Replicates(Decide27(n, hs, {}, {}))
-/\* a check "replicates" when it hands the replicator a task with at least one candidate node. (With overlapping
-\* rules the code as found keeps calling the replicator with an EMPTY candidate list: a holder remembered from
-\* an earlier rule does not lower the shortage of a later rule - a phantom shortage that copies nothing.)
-Replicates(d) == \E k \in 1..Len(d.tasks) : Len(d.tasks[k].nodes) > 0
-Quiet(hs) == \A n \in hs : LET d == Decide27(n, hs, {}, {}) IN ~Replicates(d) /\ d.del = "none"
-NoTasks(hs) == \A n \in hs : ~Replicates(Decide27(n, hs, {}, {}))
-\\* a check "replicates" when it hands the replicator a task with at least one candidate node. (With overlapping
-\* rules the code as found keeps calling the replicator with an EMPTY candidate list: a holder remembered from
-\* an earlier rule does not lower the shortage of a later rule - a phantom shortage that copies nothing.)
-Replicates(d) == \E k \in 1..Len(d.tasks) : Len(d.tasks[k].nodes) > 0
-Quiet(hs) == \A n \in hs : LET d == Decide27(n, hs, {}, {}) IN ~Replicates(d) /\ d.del = "none"
-NoTasks(hs) == \A n \in hs : ~Replicates(Decide27(n, hs, {}, {}))
- \* a check "replicates" when it hands the replicator a task with at least one candidate node. (With overlapping
-\* rules the code as found keeps calling the replicator with an EMPTY candidate list: a holder remembered from
-\* an earlier rule does not lower the shortage of a later rule - a phantom shortage that copies nothing.)
-Replicates(d) == \E k \in 1..Len(d.tasks) : Len(d.tasks[k].nodes) > 0
-Quiet(hs) == \A n \in hs : LET d == Decide27(n, hs, {}, {}) IN ~Replicates(d) /\ d.del = "none"
-NoTasks(hs) == \A n \in hs : ~Replicates(Decide27(n, hs, {}, {}))
-L\* a check "replicates" when it hands the replicator a task with at least one candidate node. (With overlapping
-\* rules the code as found keeps calling the replicator with an EMPTY candidate list: a holder remembered from
-\* an earlier rule does not lower the shortage of a later rule - a phantom shortage that copies nothing.)
-Replicates(d) == \E k \in 1..Len(d.tasks) : Len(d.tasks[k].nodes) > 0
-Quiet(hs) == \A n \in hs : LET d == Decide27(n, hs, {}, {}) IN ~Replicates(d) /\ d.del = "none"
-NoTasks(hs) == \A n \in hs : ~Replicates(Decide27(n, hs, {}, {}))
-e\* a check "replicates" when it hands the replicator a task with at least one candidate node. (With overlapping
-\* rules the code as found keeps calling the replicator with an EMPTY candidate list: a holder remembered from
-\* an earlier rule does not lower the shortage of a later rule - a phantom shortage that copies nothing.)
-Replicates(d) == \E k \in 1..Len(d.tasks) : Len(d.tasks[k].nodes) > 0
-Quiet(hs) == \A n \in hs : LET d == Decide27(n, hs, {}, {}) IN ~Replicates(d) /\ d.del = "none"
-NoTasks(hs) == \A n \in hs : ~Replicates(Decide27(n, hs, {}, {}))
-n\* a check "replicates" when it hands the replicator a task with at least one candidate node. (With overlapping
-\* rules the code as found keeps calling the replicator with an EMPTY candidate list: a holder remembered from
-\* an earlier rule does not lower the shortage of a later rule - a phantom shortage that copies nothing.)
-Replicates(d) == \E k \in 1..Len(d.tasks) : Len(d.tasks[k].nodes) > 0
-Quiet(hs) == \A n \in hs : LET d == Decide27(n, hs, {}, {}) IN ~Replicates(d) /\ d.del = "none"
-NoTasks(hs) == \A n \in hs : ~Replicates(Decide27(n, hs, {}, {}))
-(\* a check "replicates" when it hands the replicator a task with at least one candidate node. (With overlapping
-\* rules the code as found keeps calling the replicator with an EMPTY candidate list: a holder remembered from
-\* an earlier rule does not lower the shortage of a later rule - a phantom shortage that copies nothing.)
-Replicates(d) == \E k \in 1..Len(d.tasks) : Len(d.tasks[k].nodes) > 0
-Quiet(hs) == \A n \in hs : LET d == Decide27(n, hs, {}, {}) IN ~Replicates(d) /\ d.del = "none"
-NoTasks(hs) == \A n \in hs : ~Replicates(Decide27(n, hs, {}, {}))
-l\* a check "replicates" when it hands the replicator a task with at least one candidate node. (With overlapping
-\* rules the code as found keeps calling the replicator with an EMPTY candidate list: a holder remembered from
-\* an earlier rule does not lower the shortage of a later rule - a phantom shortage that copies nothing.)
-Replicates(d) == \E k \in 1..Len(d.tasks) : Len(d.tasks[k].nodes) > 0
-Quiet(hs) == \A n \in hs : LET d == Decide27(n, hs, {}, {}) IN ~Replicates(d) /\ d.del = "none"
-NoTasks(hs) == \A n \in hs : ~Replicates(Decide27(n, hs, {}, {}))
-a\* a check "replicates" when it hands the replicator a task with at least one candidate node. (With overlapping
-\* rules the code as found keeps calling the replicator with an EMPTY candidate list: a holder remembered from
-\* an earlier rule does not lower the shortage of a later rule - a phantom shortage that copies nothing.)
-Replicates(d) == \E k \in 1..Len(d.tasks) : Len(d.tasks[k].nodes) > 0
-Quiet(hs) == \A n \in hs : LET d == Decide27(n, hs, {}, {}) IN ~Replicates(d) /\ d.del = "none"
-NoTasks(hs) == \A n \in hs : ~Replicates(Decide27(n, hs, {}, {}))
-s\* a check "replicates" when it hands the replicator a task with at least one candidate node. (With overlapping
-\* rules the code as found keeps calling the replicator with an EMPTY candidate list: a holder remembered from
-\* an earlier rule does not lower the shortage of a later rule - a phantom shortage that copies nothing.)
-Replicates(d) == \E k \in 1..Len(d.tasks) : Len(d.tasks[k].nodes) > 0
-Quiet(hs) == \A n \in hs : LET d == Decide27(n, hs, {}, {}) IN ~Replicates(d) /\ d.del = "none"
-NoTasks(hs) == \A n \in hs : ~Replicates(Decide27(n, hs, {}, {}))
-t\* a check "replicates" when it hands the replicator a task with at least one candidate node. (With overlapping
-\* rules the code as found keeps calling the replicator with an EMPTY candidate list: a holder remembered from
-\* an earlier rule does not lower the shortage of a later rule - a phantom shortage that copies nothing.)
-Replicates(d) == \E k \in 1..Len(d.tasks) : Len(d.tasks[k].nodes) > 0
-Quiet(hs) == \A n \in hs : LET d == Decide27(n, hs, {}, {}) IN ~Replicates(d) /\ d.del = "none"
-NoTasks(hs) == \A n \in hs : ~Replicates(Decide27(n, hs, {}, {}))
-.\* a check "replicates" when it hands the replicator a task with at least one candidate node. (With overlapping
-\* rules the code as found keeps calling the replicator with an EMPTY candidate list: a holder remembered from
-\* an earlier rule does not lower the shortage of a later rule - a phantom shortage that copies nothing.)
-Replicates(d) == \E k \in 1..Len(d.tasks) : Len(d.tasks[k].nodes) > 0
-Quiet(hs) == \A n \in hs : LET d == Decide27(n, hs, {}, {}) IN ~Replicates(d) /\ d.del = "none"
-NoTasks(hs) == \A n \in hs : ~Replicates(Decide27(n, hs, {}, {}))
-t\* a check "replicates" when it hands the replicator a task with at least one candidate node. (With overlapping
-\* rules the code as found keeps calling the replicator with an EMPTY candidate list: a holder remembered from
-\* an earlier rule does not lower the shortage of a later rule - a phantom shortage that copies nothing.)
-Replicates(d) == \E k \in 1..Len(d.tasks) : Len(d.tasks[k].nodes) > 0
-Quiet(hs) == \A n \in hs : LET d == Decide27(n, hs, {}, {}) IN ~Replicates(d) /\ d.del = "none"
-NoTasks(hs) == \A n \in hs : ~Replicates(Decide27(n, hs, {}, {}))
-a\* a check "replicates" when it hands the replicator a task with at least one candidate node. (With overlapping
-\* rules the code as found keeps calling the replicator with an EMPTY candidate list: a holder remembered from
-\* an earlier rule does not lower the shortage of a later rule - a phantom shortage that copies nothing.)
-Replicates(d) == \E k \in 1..Len(d.tasks) : Len(d.tasks[k].nodes) > 0
-Quiet(hs) == \A n \in hs : LET d == Decide27(n, hs, {}, {}) IN ~Replicates(d) /\ d.del = "none"
-NoTasks(hs) == \A n \in hs : ~Replicates(Decide27(n, hs, {}, {}))
-s\* a check "replicates" when it hands the replicator a task with at least one candidate node. (With overlapping
-\* rules the code as found keeps calling the replicator with an EMPTY candidate list: a holder remembered from
-\* an earlier rule does not lower the shortage of a later rule - a phantom shortage that copies nothing.)
-Replicates(d) == \E k \in 1..Len(d.tasks) : Len(d.tasks[k].nodes) > 0
-Quiet(hs) == \A n \in hs : LET d == Decide27(n, hs, {}, {}) IN ~Replicates(d) /\ d.del = "none"
-NoTasks(hs) == \A n \in hs : ~Replicates(Decide27(n, hs, {}, {}))
-k\* a check "replicates" when it hands the replicator a task with at least one candidate node. (With overlapping
-\* rules the code as found keeps calling the replicator with an EMPTY candidate list: a holder remembered from
-\* an earlier rule does not lower the shortage of a later rule - a phantom shortage that copies nothing.)
-Replicates(d) == \E k \in 1..Len(d.tasks) : Len(d.tasks[k].nodes) > 0
-Quiet(hs) == \A n \in hs : LET d == Decide27(n, hs, {}, {}) IN ~Replicates(d) /\ d.del = "none"
-NoTasks(hs) == \A n \in hs : ~Replicates(Decide27(n, hs, {}, {}))
-s\* a check "replicates" when it hands the replicator a task with at least one candidate node. (With overlapping
-\* rules the code as found keeps calling the replicator with an EMPTY candidate list: a holder remembered from
-\* an earlier rule does not lower the shortage of a later rule - a phantom shortage that copies nothing.)
-Replicates(d) == \E k \in 1..Len(d.tasks) : Len(d.tasks[k].nodes) > 0
-Quiet(hs) == \A n \in hs : LET d == Decide27(n, hs, {}, {}) IN ~Replicates(d) /\ d.del = "none"
-NoTasks(hs) == \A n \in hs : ~Replicates(Decide27(n, hs, {}, {}))
-[\* a check "replicates" when it hands the replicator a task with at least one candidate node. (With overlapping
-\* rules the code as found keeps calling the replicator with an EMPTY candidate list: a holder remembered from
-\* an earlier rule does not lower the shortage of a later rule - a phantom shortage that copies nothing.)
-Replicates(d) == \E k \in 1..Len(d.tasks) : Len(d.tasks[k].nodes) > 0
-Quiet(hs) == \A n \in hs : LET d == Decide27(n, hs, {}, {}) IN ~Replicates(d) /\ d.del = "none"
-NoTasks(hs) == \A n \in hs : ~Replicates(Decide27(n, hs, {}, {}))
-k\* a check "replicates" when it hands the replicator a task with at least one candidate node. (With overlapping
-\* rules the code as found keeps calling the replicator with an EMPTY candidate list: a holder remembered from
-\* an earlier rule does not lower the shortage of a later rule - a phantom shortage that copies nothing.)
-Replicates(d) == \E k \in 1..Len(d.tasks) : Len(d.tasks[k].nodes) > 0
-Quiet(hs) == \A n \in hs : LET d == Decide27(n, hs, {}, {}) IN ~Replicates(d) /\ d.del = "none"
-NoTasks(hs) == \A n \in hs : ~Replicates(Decide27(n, hs, {}, {}))
-]\* a check "replicates" when it hands the replicator a task with at least one candidate node. (With overlapping
-\* rules the code as found keeps calling the replicator with an EMPTY candidate list: a holder remembered from
-\* an earlier rule does not lower the shortage of a later rule - a phantom shortage that copies nothing.)
-Replicates(d) == \E k \in 1..Len(d.tasks) : Len(d.tasks[k].nodes) > 0
-Quiet(hs) == \A n \in hs : LET d == Decide27(n, hs, {}, {}) IN ~Replicates(d) /\ d.del = "none"
-NoTasks(hs) == \A n \in hs : ~Replicates(Decide27(n, hs, {}, {}))
-.\* a check "replicates" when it hands the replicator a task with at least one candidate node. (With overlapping
-\* rules the code as found keeps calling the replicator with an EMPTY candidate list: a holder remembered from
-\* an earlier rule does not lower the shortage of a later rule - a phantom shortage that copies nothing.)
-Replicates(d) == \E k \in 1..Len(d.tasks) : Len(d.tasks[k].nodes) > 0
-Quiet(hs) == \A n \in hs : LET d == Decide27(n, hs, {}, {}) IN ~Replicates(d) /\ d.del = "none"
-NoTasks(hs) == \A n \in hs : ~Replicates(Decide27(n, hs, {}, {}))
-o\* a check "replicates" when it hands the replicator a task with at least one candidate node. (With overlapping
-\* rules the code as found keeps calling the replicator with an EMPTY candidate list: a holder remembered from
-\* an earlier rule does not lower the shortage of a later rule - a phantom shortage that copies nothing.)
-Replicates(d) == \E k \in 1..Len(d.tasks) : Len(d.tasks[k].nodes) > 0
-Quiet(hs) == \A n \in hs : LET d == Decide27(n, hs, {}, {}) IN ~Replicates(d) /\ d.del = "none"
-NoTasks(hs) == \A n \in hs : ~Replicates(Decide27(n, hs, {}, {}))
-k\* a check "replicates" when it hands the replicator a task with at least one candidate node. (With overlapping
-\* rules the code as found keeps calling the replicator with an EMPTY candidate list: a holder remembered from
-\* an earlier rule does not lower the shortage of a later rule - a phantom shortage that copies nothing.)
-Replicates(d) == \E k \in 1..Len(d.tasks) : Len(d.tasks[k].nodes) > 0
-Quiet(hs) == \A n \in hs : LET d == Decide27(n, hs, {}, {}) IN ~Replicates(d) /\ d.del = "none"
-NoTasks(hs) == \A n \in hs : ~Replicates(Decide27(n, hs, {}, {}))
-)\* a check "replicates" when it hands the replicator a task with at least one candidate node. (With overlapping
-\* rules the code as found keeps calling the replicator with an EMPTY candidate list: a holder remembered from
-\* an earlier rule does not lower the shortage of a later rule - a phantom shortage that copies nothing.)
-Replicates(d) == \E k \in 1..Len(d.tasks) : Len(d.tasks[k].nodes) > 0
-Quiet(hs) == \A n \in hs : LET d == Decide27(n, hs, {}, {}) IN ~Replicates(d) /\ d.del = "none"
-NoTasks(hs) == \A n \in hs : ~Replicates(Decide27(n, hs, {}, {}))
- \* a check "replicates" when it hands the replicator a task with at least one candidate node. (With overlapping
-\* rules the code as found keeps calling the replicator with an EMPTY candidate list: a holder remembered from
-\* an earlier rule does not lower the shortage of a later rule - a phantom shortage that copies nothing.)
-Replicates(d) == \E k \in 1..Len(d.tasks) : Len(d.tasks[k].nodes) > 0
-Quiet(hs) == \A n \in hs : LET d == Decide27(n, hs, {}, {}) IN ~Replicates(d) /\ d.del = "none"
-NoTasks(hs) == \A n \in hs : ~Replicates(Decide27(n, hs, {}, {}))
-<\* a check "replicates" when it hands the replicator a task with at least one candidate node. (With overlapping
-\* rules the code as found keeps calling the replicator with an EMPTY candidate list: a holder remembered from
-\* an earlier rule does not lower the shortage of a later rule - a phantom shortage that copies nothing.)
-Replicates(d) == \E k \in 1..Len(d.tasks) : Len(d.tasks[k].nodes) > 0
-Quiet(hs) == \A n \in hs : LET d == Decide27(n, hs, {}, {}) IN ~Replicates(d) /\ d.del = "none"
-NoTasks(hs) == \A n \in hs : ~Replicates(Decide27(n, hs, {}, {}))
-=\* a check "replicates" when it hands the replicator a task with at least one candidate node. (With overlapping
-\* rules the code as found keeps calling the replicator with an EMPTY candidate list: a holder remembered from
-\* an earlier rule does not lower the shortage of a later rule - a phantom shortage that copies nothing.)
-Replicates(d) == \E k \in 1..Len(d.tasks) : Len(d.tasks[k].nodes) > 0
-Quiet(hs) == \A n \in hs : LET d == Decide27(n, hs, {}, {}) IN ~Replicates(d) /\ d.del = "none"
-NoTasks(hs) == \A n \in hs : ~Replicates(Decide27(n, hs, {}, {}))
- \* a check "replicates" when it hands the replicator a task with at least one candidate node. (With overlapping
-\* rules the code as found keeps calling the replicator with an EMPTY candidate list: a holder remembered from
-\* an earlier rule does not lower the shortage of a later rule - a phantom shortage that copies nothing.)
-Replicates(d) == \E k \in 1..Len(d.tasks) : Len(d.tasks[k].nodes) > 0
-Quiet(hs) == \A n \in hs : LET d == Decide27(n, hs, {}, {}) IN ~Replicates(d) /\ d.del = "none"
-NoTasks(hs) == \A n \in hs : ~Replicates(Decide27(n, hs, {}, {}))
-l\* a check "replicates" when it hands the replicator a task with at least one candidate node. (With overlapping
-\* rules the code as found keeps calling the replicator with an EMPTY candidate list: a holder remembered from
-\* an earlier rule does not lower the shortage of a later rule - a phantom shortage that copies nothing.)
-Replicates(d) == \E k \in 1..Len(d.tasks) : Len(d.tasks[k].nodes) > 0
-Quiet(hs) == \A n \in hs : LET d == Decide27(n, hs, {}, {}) IN ~Replicates(d) /\ d.del = "none"
-NoTasks(hs) == \A n \in hs : ~Replicates(Decide27(n, hs, {}, {}))
-a\* a check "replicates" when it hands the replicator a task with at least one candidate node. (With overlapping
-\* rules the code as found keeps calling the replicator with an EMPTY candidate list: a holder remembered from
-\* an earlier rule does not lower the shortage of a later rule - a phantom shortage that copies nothing.)
-Replicates(d) == \E k \in 1..Len(d.tasks) : Len(d.tasks[k].nodes) > 0
-Quiet(hs) == \A n \in hs : LET d == Decide27(n, hs, {}, {}) IN ~Replicates(d) /\ d.del = "none"
-NoTasks(hs) == \A n \in hs : ~Replicates(Decide27(n, hs, {}, {}))
-s\* a check "replicates" when it hands the replicator a task with at least one candidate node. (With overlapping
-\* rules the code as found keeps calling the replicator with an EMPTY candidate list: a holder remembered from
-\* an earlier rule does not lower the shortage of a later rule - a phantom shortage that copies nothing.)
-Replicates(d) == \E k \in 1..Len(d.tasks) : Len(d.tasks[k].nodes) > 0
-Quiet(hs) == \A n \in hs : LET d == Decide27(n, hs, {}, {}) IN ~Replicates(d) /\ d.del = "none"
-NoTasks(hs) == \A n \in hs : ~Replicates(Decide27(n, hs, {}, {}))
-t\* a check "replicates" when it hands the replicator a task with at least one candidate node. (With overlapping
-\* rules the code as found keeps calling the replicator with an EMPTY candidate list: a holder remembered from
-\* an earlier rule does not lower the shortage of a later rule - a phantom shortage that copies nothing.)
-Replicates(d) == \E k \in 1..Len(d.tasks) : Len(d.tasks[k].nodes) > 0
-Quiet(hs) == \A n \in hs : LET d == Decide27(n, hs, {}, {}) IN ~Replicates(d) /\ d.del = "none"
-NoTasks(hs) == \A n \in hs : ~Replicates(Decide27(n, hs, {}, {}))
-.\* a check "replicates" when it hands the replicator a task with at least one candidate node. (With overlapping
-\* rules the code as found keeps calling the replicator with an EMPTY candidate list: a holder remembered from
-\* an earlier rule does not lower the shortage of a later rule - a phantom shortage that copies nothing.)
-Replicates(d) == \E k \in 1..Len(d.tasks) : Len(d.tasks[k].nodes) > 0
-Quiet(hs) == \A n \in hs : LET d == Decide27(n, hs, {}, {}) IN ~Replicates(d) /\ d.del = "none"
-NoTasks(hs) == \A n \in hs : ~Replicates(Decide27(n, hs, {}, {}))
-t\* a check "replicates" when it hands the replicator a task with at least one candidate node. (With overlapping
-\* rules the code as found keeps calling the replicator with an EMPTY candidate list: a holder remembered from
-\* an earlier rule does not lower the shortage of a later rule - a phantom shortage that copies nothing.)
-Replicates(d) == \E k \in 1..Len(d.tasks) : Len(d.tasks[k].nodes) > 0
-Quiet(hs) == \A n \in hs : LET d == Decide27(n, hs, {}, {}) IN ~Replicates(d) /\ d.del = "none"
-NoTasks(hs) == \A n \in hs : ~Replicates(Decide27(n, hs, {}, {}))
-a\* a check "replicates" when it hands the replicator a task with at least one candidate node. (With overlapping
-\* rules the code as found keeps calling the replicator with an EMPTY candidate list: a holder remembered from
-\* an earlier rule does not lower the shortage of a later rule - a phantom shortage that copies nothing.)
-Replicates(d) == \E k \in 1..Len(d.tasks) : Len(d.tasks[k].nodes) > 0
-Quiet(hs) == \A n \in hs : LET d == Decide27(n, hs, {}, {}) IN ~Replicates(d) /\ d.del = "none"
-NoTasks(hs) == \A n \in hs : ~Replicates(Decide27(n, hs, {}, {}))
-s\* a check "replicates" when it hands the replicator a task with at least one candidate node. (With overlapping
-\* rules the code as found keeps calling the replicator with an EMPTY candidate list: a holder remembered from
-\* an earlier rule does not lower the shortage of a later rule - a phantom shortage that copies nothing.)
-Replicates(d) == \E k \in 1..Len(d.tasks) : Len(d.tasks[k].nodes) > 0
-Quiet(hs) == \A n \in hs : LET d == Decide27(n, hs, {}, {}) IN ~Replicates(d) /\ d.del = "none"
-NoTasks(hs) == \A n \in hs : ~Replicates(Decide27(n, hs, {}, {}))
-k\* a check "replicates" when it hands the replicator a task with at least one candidate node. (With overlapping
-\* rules the code as found keeps calling the replicator with an EMPTY candidate list: a holder remembered from
-\* an earlier rule does not lower the shortage of a later rule - a phantom shortage that copies nothing.)
-Replicates(d) == \E k \in 1..Len(d.tasks) : Len(d.tasks[k].nodes) > 0
-Quiet(hs) == \A n \in hs : LET d == Decide27(n, hs, {}, {}) IN ~Replicates(d) /\ d.del = "none"
-NoTasks(hs) == \A n \in hs : ~Replicates(Decide27(n, hs, {}, {}))
-s\* a check "replicates" when it hands the replicator a task with at least one candidate node. (With overlapping
-\* rules the code as found keeps calling the replicator with an EMPTY candidate list: a holder remembered from
-\* an earlier rule does not lower the shortage of a later rule - a phantom shortage that copies nothing.)
-Replicates(d) == \E k \in 1..Len(d.tasks) : Len(d.tasks[k].nodes) > 0
-Quiet(hs) == \A n \in hs : LET d == Decide27(n, hs, {}, {}) IN ~Replicates(d) /\ d.del = "none"
-NoTasks(hs) == \A n \in hs : ~Replicates(Decide27(n, hs, {}, {}))
-[\* a check "replicates" when it hands the replicator a task with at least one candidate node. (With overlapping
-\* rules the code as found keeps calling the replicator with an EMPTY candidate list: a holder remembered from
-\* an earlier rule does not lower the shortage of a later rule - a phantom shortage that copies nothing.)
-Replicates(d) == \E k \in 1..Len(d.tasks) : Len(d.tasks[k].nodes) > 0
-Quiet(hs) == \A n \in hs : LET d == Decide27(n, hs, {}, {}) IN ~Replicates(d) /\ d.del = "none"
-NoTasks(hs) == \A n \in hs : ~Replicates(Decide27(n, hs, {}, {}))
-k\* a check "replicates" when it hands the replicator a task with at least one candidate node. (With overlapping
-\* rules the code as found keeps calling the replicator with an EMPTY candidate list: a holder remembered from
-\* an earlier rule does not lower the shortage of a later rule - a phantom shortage that copies nothing.)
-Replicates(d) == \E k \in 1..Len(d.tasks) : Len(d.tasks[k].nodes) > 0
-Quiet(hs) == \A n \in hs : LET d == Decide27(n, hs, {}, {}) IN ~Replicates(d) /\ d.del = "none"
-NoTasks(hs) == \A n \in hs : ~Replicates(Decide27(n, hs, {}, {}))
-]\* a check "replicates" when it hands the replicator a task with at least one candidate node. (With overlapping
-\* rules the code as found keeps calling the replicator with an EMPTY candidate list: a holder remembered from
-\* an earlier rule does not lower the shortage of a later rule - a phantom shortage that copies nothing.)
-Replicates(d) == \E k \in 1..Len(d.tasks) : Len(d.tasks[k].nodes) > 0
-Quiet(hs) == \A n \in hs : LET d == Decide27(n, hs, {}, {}) IN ~Replicates(d) /\ d.del = "none"
-NoTasks(hs) == \A n \in hs : ~Replicates(Decide27(n, hs, {}, {}))
-.\* a check "replicates" when it hands the replicator a task with at least one candidate node. (With overlapping
-\* rules the code as found keeps calling the replicator with an EMPTY candidate list: a holder remembered from
-\* an earlier rule does not lower the shortage of a later rule - a phantom shortage that copies nothing.)
-Replicates(d) == \E k \in 1..Len(d.tasks) : Len(d.tasks[k].nodes) > 0
-Quiet(hs) == \A n \in hs : LET d == Decide27(n, hs, {}, {}) IN ~Replicates(d) /\ d.del = "none"
-NoTasks(hs) == \A n \in hs : ~Replicates(Decide27(n, hs, {}, {}))
-q\* a check "replicates" when it hands the replicator a task with at least one candidate node. (With overlapping
-\* rules the code as found keeps calling the replicator with an EMPTY candidate list: a holder remembered from
-\* an earlier rule does not lower the shortage of a later rule - a phantom shortage that copies nothing.)
-Replicates(d) == \E k \in 1..Len(d.tasks) : Len(d.tasks[k].nodes) > 0
-Quiet(hs) == \A n \in hs : LET d == Decide27(n, hs, {}, {}) IN ~Replicates(d) /\ d.del = "none"
-NoTasks(hs) == \A n \in hs : ~Replicates(Decide27(n, hs, {}, {}))
-
-\* a check "replicates" when it hands the replicator a task with at least one candidate node. (With overlapping
-\* rules the code as found keeps calling the replicator with an EMPTY candidate list: a holder remembered from
-\* an earlier rule does not lower the shortage of a later rule - a phantom shortage that copies nothing.)
-Replicates(d) == \E k \in 1..Len(d.tasks) : Len(d.tasks[k].nodes) > 0
-Quiet(hs) == \A n \in hs : LET d == Decide27(n, hs, {}, {}) IN ~Replicates(d) /\ d.del = "none"
-NoTasks(hs) == \A n \in hs : ~Replicates(Decide27(n, hs, {}, {}))
- \* a check "replicates" when it hands the replicator a task with at least one candidate node. (With overlapping
-\* rules the code as found keeps calling the replicator with an EMPTY candidate list: a holder remembered from
-\* an earlier rule does not lower the shortage of a later rule - a phantom shortage that copies nothing.)
-Replicates(d) == \E k \in 1..Len(d.tasks) : Len(d.tasks[k].nodes) > 0
-Quiet(hs) == \A n \in hs : LET d == Decide27(n, hs, {}, {}) IN ~Replicates(d) /\ d.del = "none"
-NoTasks(hs) == \A n \in hs : ~Replicates(Decide27(n, hs, {}, {}))
- \* a check "replicates" when it hands the replicator a task with at least one candidate node. (With overlapping
-\* rules the code as found keeps calling the replicator with an EMPTY candidate list: a holder remembered from
-\* an earlier rule does not lower the shortage of a later rule - a phantom shortage that copies nothing.)
-Replicates(d) == \E k \in 1..Len(d.tasks) : Len(d.tasks[k].nodes) > 0
-Quiet(hs) == \A n \in hs : LET d == Decide27(n, hs, {}, {}) IN ~Replicates(d) /\ d.del = "none"
-NoTasks(hs) == \A n \in hs : ~Replicates(Decide27(n, hs, {}, {}))
- \* a check "replicates" when it hands the replicator a task with at least one candidate node. (With overlapping
-\* rules the code as found keeps calling the replicator with an EMPTY candidate list: a holder remembered from
-\* an earlier rule does not lower the shortage of a later rule - a phantom shortage that copies nothing.)
-Replicates(d) == \E k \in 1..Len(d.tasks) : Len(d.tasks[k].nodes) > 0
-Quiet(hs) == \A n \in hs : LET d == Decide27(n, hs, {}, {}) IN ~Replicates(d) /\ d.del = "none"
-NoTasks(hs) == \A n \in hs : ~Replicates(Decide27(n, hs, {}, {}))
- \* a check "replicates" when it hands the replicator a task with at least one candidate node. (With overlapping
-\* rules the code as found keeps calling the replicator with an EMPTY candidate list: a holder remembered from
-\* an earlier rule does not lower the shortage of a later rule - a phantom shortage that copies nothing.)
-Replicates(d) == \E k \in 1..Len(d.tasks) : Len(d.tasks[k].nodes) > 0
-Quiet(hs) == \A n \in hs : LET d == Decide27(n, hs, {}, {}) IN ~Replicates(d) /\ d.del = "none"
-NoTasks(hs) == \A n \in hs : ~Replicates(Decide27(n, hs, {}, {}))
- \* a check "replicates" when it hands the replicator a task with at least one candidate node. (With overlapping
-\* rules the code as found keeps calling the replicator with an EMPTY candidate list: a holder remembered from
-\* an earlier rule does not lower the shortage of a later rule - a phantom shortage that copies nothing.)
-Replicates(d) == \E k \in 1..Len(d.tasks) : Len(d.tasks[k].nodes) > 0
-Quiet(hs) == \A n \in hs : LET d == Decide27(n, hs, {}, {}) IN ~Replicates(d) /\ d.del = "none"
-NoTasks(hs) == \A n \in hs : ~Replicates(Decide27(n, hs, {}, {}))
- \* a check "replicates" when it hands the replicator a task with at least one candidate node. (With overlapping
-\* rules the code as found keeps calling the replicator with an EMPTY candidate list: a holder remembered from
-\* an earlier rule does not lower the shortage of a later rule - a phantom shortage that copies nothing.)
-Replicates(d) == \E k \in 1..Len(d.tasks) : Len(d.tasks[k].nodes) > 0
-Quiet(hs) == \A n \in hs : LET d == Decide27(n, hs, {}, {}) IN ~Replicates(d) /\ d.del = "none"
-NoTasks(hs) == \A n \in hs : ~Replicates(Decide27(n, hs, {}, {}))
- \* a check "replicates" when it hands the replicator a task with at least one candidate node. (With overlapping
-\* rules the code as found keeps calling the replicator with an EMPTY candidate list: a holder remembered from
-\* an earlier rule does not lower the shortage of a later rule - a phantom shortage that copies nothing.)
-Replicates(d) == \E k \in 1..Len(d.tasks) : Len(d.tasks[k].nodes) > 0
-Quiet(hs) == \A n \in hs : LET d == Decide27(n, hs, {}, {}) IN ~Replicates(d) /\ d.del = "none"
-NoTasks(hs) == \A n \in hs : ~Replicates(Decide27(n, hs, {}, {}))
- \* a check "replicates" when it hands the replicator a task with at least one candidate node. (With overlapping
-\* rules the code as found keeps calling the replicator with an EMPTY candidate list: a holder remembered from
-\* an earlier rule does not lower the shortage of a later rule - a phantom shortage that copies nothing.)
-Replicates(d) == \E k \in 1..Len(d.tasks) : Len(d.tasks[k].nodes) > 0
-Quiet(hs) == \A n \in hs : LET d == Decide27(n, hs, {}, {}) IN ~Replicates(d) /\ d.del = "none"
-NoTasks(hs) == \A n \in hs : ~Replicates(Decide27(n, hs, {}, {}))
- \* a check "replicates" when it hands the replicator a task with at least one candidate node. (With overlapping
-\* rules the code as found keeps calling the replicator with an EMPTY candidate list: a holder remembered from
-\* an earlier rule does not lower the shortage of a later rule - a phantom shortage that copies nothing.)
-Replicates(d) == \E k \in 1..Len(d.tasks) : Len(d.tasks[k].nodes) > 0
-Quiet(hs) == \A n \in hs : LET d == Decide27(n, hs, {}, {}) IN ~Replicates(d) /\ d.del = "none"
-NoTasks(hs) == \A n \in hs : ~Replicates(Decide27(n, hs, {}, {}))
- \* a check "replicates" when it hands the replicator a task with at least one candidate node. (With overlapping
-\* rules the code as found keeps calling the replicator with an EMPTY candidate list: a holder remembered from
-\* an earlier rule does not lower the shortage of a later rule - a phantom shortage that copies nothing.)
-Replicates(d) == \E k \in 1..Len(d.tasks) : Len(d.tasks[k].nodes) > 0
-Quiet(hs) == \A n \in hs : LET d == Decide27(n, hs, {}, {}) IN ~Replicates(d) /\ d.del = "none"
-NoTasks(hs) == \A n \in hs : ~Replicates(Decide27(n, hs, {}, {}))
- \* a check "replicates" when it hands the replicator a task with at least one candidate node. (With overlapping
-\* rules the code as found keeps calling the replicator with an EMPTY candidate list: a holder remembered from
-\* an earlier rule does not lower the shortage of a later rule - a phantom shortage that copies nothing.)
-Replicates(d) == \E k \in 1..Len(d.tasks) : Len(d.tasks[k].nodes) > 0
-Quiet(hs) == \A n \in hs : LET d == Decide27(n, hs, {}, {}) IN ~Replicates(d) /\ d.del = "none"
-NoTasks(hs) == \A n \in hs : ~Replicates(Decide27(n, hs, {}, {}))
- \* a check "replicates" when it hands the replicator a task with at least one candidate node. (With overlapping
-\* rules the code as found keeps calling the replicator with an EMPTY candidate list: a holder remembered from
-\* an earlier rule does not lower the shortage of a later rule - a phantom shortage that copies nothing.)
-Replicates(d) == \E k \in 1..Len(d.tasks) : Len(d.tasks[k].nodes) > 0
-Quiet(hs) == \A n \in hs : LET d == Decide27(n, hs, {}, {}) IN ~Replicates(d) /\ d.del = "none"
-NoTasks(hs) == \A n \in hs : ~Replicates(Decide27(n, hs, {}, {}))
-/\* a check "replicates" when it hands the replicator a task with at least one candidate node. (With overlapping
-\* rules the code as found keeps calling the replicator with an EMPTY candidate list: a holder remembered from
-\* an earlier rule does not lower the shortage of a later rule - a phantom shortage that copies nothing.)
-Replicates(d) == \E k \in 1..Len(d.tasks) : Len(d.tasks[k].nodes) > 0
-Quiet(hs) == \A n \in hs : LET d == Decide27(n, hs, {}, {}) IN ~Replicates(d) /\ d.del = "none"
-NoTasks(hs) == \A n \in hs : ~Replicates(Decide27(n, hs, {}, {}))
-\\* a check "replicates" when it hands the replicator a task with at least one candidate node. (With overlapping
-\* rules the code as found keeps calling the replicator with an EMPTY candidate list: a holder remembered from
-\* an earlier rule does not lower the shortage of a later rule - a phantom shortage that copies nothing.)
-Replicates(d) == \E k \in 1..Len(d.tasks) : Len(d.tasks[k].nodes) > 0
-Quiet(hs) == \A n \in hs : LET d == Decide27(n, hs, {}, {}) IN ~Replicates(d) /\ d.del = "none"
-NoTasks(hs) == \A n \in hs : ~Replicates(Decide27(n, hs, {}, {}))
- \* a check "replicates" when it hands the replicator a task with at least one candidate node. (With overlapping
-\* rules the code as found keeps calling the replicator with an EMPTY candidate list: a holder remembered from
-\* an earlier rule does not lower the shortage of a later rule - a phantom shortage that copies nothing.)
-Replicates(d) == \E k \in 1..Len(d.tasks) : Len(d.tasks[k].nodes) > 0
-Quiet(hs) == \A n \in hs : LET d == Decide27(n, hs, {}, {}) IN ~Replicates(d) /\ d.del = "none"
-NoTasks(hs) == \A n \in hs : ~Replicates(Decide27(n, hs, {}, {}))
-R\* a check "replicates" when it hands the replicator a task with at least one candidate node. (With overlapping
-\* rules the code as found keeps calling the replicator with an EMPTY candidate list: a holder remembered from
-\* an earlier rule does not lower the shortage of a later rule - a phantom shortage that copies nothing.)
-Replicates(d) == \E k \in 1..Len(d.tasks) : Len(d.tasks[k].nodes) > 0
-Quiet(hs) == \A n \in hs : LET d == Decide27(n, hs, {}, {}) IN ~Replicates(d) /\ d.del = "none"
-NoTasks(hs) == \A n \in hs : ~Replicates(Decide27(n, hs, {}, {}))
-a\* a check "replicates" when it hands the replicator a task with at least one candidate node. (With overlapping
-\* rules the code as found keeps calling the replicator with an EMPTY candidate list: a holder remembered from
-\* an earlier rule does not lower the shortage of a later rule - a phantom shortage that copies nothing.)
-Replicates(d) == \E k \in 1..Len(d.tasks) : Len(d.tasks[k].nodes) > 0
-Quiet(hs) == \A n \in hs : LET d == Decide27(n, hs, {}, {}) IN ~Replicates(d) /\ d.del = "none"
-NoTasks(hs) == \A n \in hs : ~Replicates(Decide27(n, hs, {}, {}))
-n\* a check "replicates" when it hands the replicator a task with at least one candidate node. (With overlapping
-\* rules the code as found keeps calling the replicator with an EMPTY candidate list: a holder remembered from
-\* an earlier rule does not lower the shortage of a later rule - a phantom shortage that copies nothing.)
-Replicates(d) == \E k \in 1..Len(d.tasks) : Len(d.tasks[k].nodes) > 0
-Quiet(hs) == \A n \in hs : LET d == Decide27(n, hs, {}, {}) IN ~Replicates(d) /\ d.del = "none"
-NoTasks(hs) == \A n \in hs : ~Replicates(Decide27(n, hs, {}, {}))
-g\* a check "replicates" when it hands the replicator a task with at least one candidate node. (With overlapping
-\* rules the code as found keeps calling the replicator with an EMPTY candidate list: a holder remembered from
-\* an earlier rule does not lower the shortage of a later rule - a phantom shortage that copies nothing.)
-Replicates(d) == \E k \in 1..Len(d.tasks) : Len(d.tasks[k].nodes) > 0
-Quiet(hs) == \A n \in hs : LET d == Decide27(n, hs, {}, {}) IN ~Replicates(d) /\ d.del = "none"
-NoTasks(hs) == \A n \in hs : ~Replicates(Decide27(n, hs, {}, {}))
-e\* a check "replicates" when it hands the replicator a task with at least one candidate node. (With overlapping
-\* rules the code as found keeps calling the replicator with an EMPTY candidate list: a holder remembered from
-\* an earlier rule does not lower the shortage of a later rule - a phantom shortage that copies nothing.)
-Replicates(d) == \E k \in 1..Len(d.tasks) : Len(d.tasks[k].nodes) > 0
-Quiet(hs) == \A n \in hs : LET d == Decide27(n, hs, {}, {}) IN ~Replicates(d) /\ d.del = "none"
-NoTasks(hs) == \A n \in hs : ~Replicates(Decide27(n, hs, {}, {}))
-(\* a check "replicates" when it hands the replicator a task with at least one candidate node. (With overlapping
-\* rules the code as found keeps calling the replicator with an EMPTY candidate list: a holder remembered from
-\* an earlier rule does not lower the shortage of a later rule - a phantom shortage that copies nothing.)
-Replicates(d) == \E k \in 1..Len(d.tasks) : Len(d.tasks[k].nodes) > 0
-Quiet(hs) == \A n \in hs : LET d == Decide27(n, hs, {}, {}) IN ~Replicates(d) /\ d.del = "none"
-NoTasks(hs) == \A n \in hs : ~Replicates(Decide27(n, hs, {}, {}))
-l\* a check "replicates" when it hands the replicator a task with at least one candidate node. (With overlapping
-\* rules the code as found keeps calling the replicator with an EMPTY candidate list: a holder remembered from
-\* an earlier rule does not lower the shortage of a later rule - a phantom shortage that copies nothing.)
-Replicates(d) == \E k \in 1..Len(d.tasks) : Len(d.tasks[k].nodes) > 0
-Quiet(hs) == \A n \in hs : LET d == Decide27(n, hs, {}, {}) IN ~Replicates(d) /\ d.del = "none"
-NoTasks(hs) == \A n \in hs : ~Replicates(Decide27(n, hs, {}, {}))
-a\* a check "replicates" when it hands the replicator a task with at least one candidate node. (With overlapping
-\* rules the code as found keeps calling the replicator with an EMPTY candidate list: a holder remembered from
-\* an earlier rule does not lower the shortage of a later rule - a phantom shortage that copies nothing.)
-Replicates(d) == \E k \in 1..Len(d.tasks) : Len(d.tasks[k].nodes) > 0
-Quiet(hs) == \A n \in hs : LET d == Decide27(n, hs, {}, {}) IN ~Replicates(d) /\ d.del = "none"
-NoTasks(hs) == \A n \in hs : ~Replicates(Decide27(n, hs, {}, {}))
-s\* a check "replicates" when it hands the replicator a task with at least one candidate node. (With overlapping
-\* rules the code as found keeps calling the replicator with an EMPTY candidate list: a holder remembered from
-\* an earlier rule does not lower the shortage of a later rule - a phantom shortage that copies nothing.)
-Replicates(d) == \E k \in 1..Len(d.tasks) : Len(d.tasks[k].nodes) > 0
-Quiet(hs) == \A n \in hs : LET d == Decide27(n, hs, {}, {}) IN ~Replicates(d) /\ d.del = "none"
-NoTasks(hs) == \A n \in hs : ~Replicates(Decide27(n, hs, {}, {}))
-t\* a check "replicates" when it hands the replicator a task with at least one candidate node. (With overlapping
-\* rules the code as found keeps calling the replicator with an EMPTY candidate list: a holder remembered from
-\* an earlier rule does not lower the shortage of a later rule - a phantom shortage that copies nothing.)
-Replicates(d) == \E k \in 1..Len(d.tasks) : Len(d.tasks[k].nodes) > 0
-Quiet(hs) == \A n \in hs : LET d == Decide27(n, hs, {}, {}) IN ~Replicates(d) /\ d.del = "none"
-NoTasks(hs) == \A n \in hs : ~Replicates(Decide27(n, hs, {}, {}))
-.\* a check "replicates" when it hands the replicator a task with at least one candidate node. (With overlapping
-\* rules the code as found keeps calling the replicator with an EMPTY candidate list: a holder remembered from
-\* an earlier rule does not lower the shortage of a later rule - a phantom shortage that copies nothing.)
-Replicates(d) == \E k \in 1..Len(d.tasks) : Len(d.tasks[k].nodes) > 0
-Quiet(hs) == \A n \in hs : LET d == Decide27(n, hs, {}, {}) IN ~Replicates(d) /\ d.del = "none"
-NoTasks(hs) == \A n \in hs : ~Replicates(Decide27(n, hs, {}, {}))
-t\* a check "replicates" when it hands the replicator a task with at least one candidate node. (With overlapping
-\* rules the code as found keeps calling the replicator with an EMPTY candidate list: a holder remembered from
-\* an earlier rule does not lower the shortage of a later rule - a phantom shortage that copies nothing.)
-Replicates(d) == \E k \in 1..Len(d.tasks) : Len(d.tasks[k].nodes) > 0
-Quiet(hs) == \A n \in hs : LET d == Decide27(n, hs, {}, {}) IN ~Replicates(d) /\ d.del = "none"
-NoTasks(hs) == \A n \in hs : ~Replicates(Decide27(n, hs, {}, {}))
-a\* a check "replicates" when it hands the replicator a task with at least one candidate node. (With overlapping
-\* rules the code as found keeps calling the replicator with an EMPTY candidate list: a holder remembered from
-\* an earlier rule does not lower the shortage of a later rule - a phantom shortage that copies nothing.)
-Replicates(d) == \E k \in 1..Len(d.tasks) : Len(d.tasks[k].nodes) > 0
-Quiet(hs) == \A n \in hs : LET d == Decide27(n, hs, {}, {}) IN ~Replicates(d) /\ d.del = "none"
-NoTasks(hs) == \A n \in hs : ~Replicates(Decide27(n, hs, {}, {}))
-s\* a check "replicates" when it hands the replicator a task with at least one candidate node. (With overlapping
-\* rules the code as found keeps calling the replicator with an EMPTY candidate list: a holder remembered from
-\* an earlier rule does not lower the shortage of a later rule - a phantom shortage that copies nothing.)
-Replicates(d) == \E k \in 1..Len(d.tasks) : Len(d.tasks[k].nodes) > 0
-Quiet(hs) == \A n \in hs : LET d == Decide27(n, hs, {}, {}) IN ~Replicates(d) /\ d.del = "none"
-NoTasks(hs) == \A n \in hs : ~Replicates(Decide27(n, hs, {}, {}))
-k\* a check "replicates" when it hands the replicator a task with at least one candidate node. (With overlapping
-\* rules the code as found keeps calling the replicator with an EMPTY candidate list: a holder remembered from
-\* an earlier rule does not lower the shortage of a later rule - a phantom shortage that copies nothing.)
-Replicates(d) == \E k \in 1..Len(d.tasks) : Len(d.tasks[k].nodes) > 0
-Quiet(hs) == \A n \in hs : LET d == Decide27(n, hs, {}, {}) IN ~Replicates(d) /\ d.del = "none"
-NoTasks(hs) == \A n \in hs : ~Replicates(Decide27(n, hs, {}, {}))
-s\* a check "replicates" when it hands the replicator a task with at least one candidate node. (With overlapping
-\* rules the code as found keeps calling the replicator with an EMPTY candidate list: a holder remembered from
-\* an earlier rule does not lower the shortage of a later rule - a phantom shortage that copies nothing.)
-Replicates(d) == \E k \in 1..Len(d.tasks) : Len(d.tasks[k].nodes) > 0
-Quiet(hs) == \A n \in hs : LET d == Decide27(n, hs, {}, {}) IN ~Replicates(d) /\ d.del = "none"
-NoTasks(hs) == \A n \in hs : ~Replicates(Decide27(n, hs, {}, {}))
-[\* a check "replicates" when it hands the replicator a task with at least one candidate node. (With overlapping
-\* rules the code as found keeps calling the replicator with an EMPTY candidate list: a holder remembered from
-\* an earlier rule does not lower the shortage of a later rule - a phantom shortage that copies nothing.)
-Replicates(d) == \E k \in 1..Len(d.tasks) : Len(d.tasks[k].nodes) > 0
-Quiet(hs) == \A n \in hs : LET d == Decide27(n, hs, {}, {}) IN ~Replicates(d) /\ d.del = "none"
-NoTasks(hs) == \A n \in hs : ~Replicates(Decide27(n, hs, {}, {}))
-k\* a check "replicates" when it hands the replicator a task with at least one candidate node. (With overlapping
-\* rules the code as found keeps calling the replicator with an EMPTY candidate list: a holder remembered from
-\* an earlier rule does not lower the shortage of a later rule - a phantom shortage that copies nothing.)
-Replicates(d) == \E k \in 1..Len(d.tasks) : Len(d.tasks[k].nodes) > 0
-Quiet(hs) == \A n \in hs : LET d == Decide27(n, hs, {}, {}) IN ~Replicates(d) /\ d.del = "none"
-NoTasks(hs) == \A n \in hs : ~Replicates(Decide27(n, hs, {}, {}))
-]\* a check "replicates" when it hands the replicator a task with at least one candidate node. (With overlapping
-\* rules the code as found keeps calling the replicator with an EMPTY candidate list: a holder remembered from
-\* an earlier rule does not lower the shortage of a later rule - a phantom shortage that copies nothing.)
-Replicates(d) == \E k \in 1..Len(d.tasks) : Len(d.tasks[k].nodes) > 0
-Quiet(hs) == \A n \in hs : LET d == Decide27(n, hs, {}, {}) IN ~Replicates(d) /\ d.del = "none"
-NoTasks(hs) == \A n \in hs : ~Replicates(Decide27(n, hs, {}, {}))
-.\* a check "replicates" when it hands the replicator a task with at least one candidate node. (With overlapping
-\* rules the code as found keeps calling the replicator with an EMPTY candidate list: a holder remembered from
-\* an earlier rule does not lower the shortage of a later rule - a phantom shortage that copies nothing.)
-Replicates(d) == \E k \in 1..Len(d.tasks) : Len(d.tasks[k].nodes) > 0
-Quiet(hs) == \A n \in hs : LET d == Decide27(n, hs, {}, {}) IN ~Replicates(d) /\ d.del = "none"
-NoTasks(hs) == \A n \in hs : ~Replicates(Decide27(n, hs, {}, {}))
-o\* a check "replicates" when it hands the replicator a task with at least one candidate node. (With overlapping
-\* rules the code as found keeps calling the replicator with an EMPTY candidate list: a holder remembered from
-\* an earlier rule does not lower the shortage of a later rule - a phantom shortage that copies nothing.)
-Replicates(d) == \E k \in 1..Len(d.tasks) : Len(d.tasks[k].nodes) > 0
-Quiet(hs) == \A n \in hs : LET d == Decide27(n, hs, {}, {}) IN ~Replicates(d) /\ d.del = "none"
-NoTasks(hs) == \A n \in hs : ~Replicates(Decide27(n, hs, {}, {}))
-k\* a check "replicates" when it hands the replicator a task with at least one candidate node. (With overlapping
-\* rules the code as found keeps calling the replicator with an EMPTY candidate list: a holder remembered from
-\* an earlier rule does not lower the shortage of a later rule - a phantom shortage that copies nothing.)
-Replicates(d) == \E k \in 1..Len(d.tasks) : Len(d.tasks[k].nodes) > 0
-Quiet(hs) == \A n \in hs : LET d == Decide27(n, hs, {}, {}) IN ~Replicates(d) /\ d.del = "none"
-NoTasks(hs) == \A n \in hs : ~Replicates(Decide27(n, hs, {}, {}))
-)\* a check "replicates" when it hands the replicator a task with at least one candidate node. (With overlapping
-\* rules the code as found keeps calling the replicator with an EMPTY candidate list: a holder remembered from
-\* an earlier rule does not lower the shortage of a later rule - a phantom shortage that copies nothing.)
-Replicates(d) == \E k \in 1..Len(d.tasks) : Len(d.tasks[k].nodes) > 0
-Quiet(hs) == \A n \in hs : LET d == Decide27(n, hs, {}, {}) IN ~Replicates(d) /\ d.del = "none"
-NoTasks(hs) == \A n \in hs : ~Replicates(Decide27(n, hs, {}, {}))
- \* a check "replicates" when it hands the replicator a task with at least one candidate node. (With overlapping
-\* rules the code as found keeps calling the replicator with an EMPTY candidate list: a holder remembered from
-\* an earlier rule does not lower the shortage of a later rule - a phantom shortage that copies nothing.)
-Replicates(d) == \E k \in 1..Len(d.tasks) : Len(d.tasks[k].nodes) > 0
-Quiet(hs) == \A n \in hs : LET d == Decide27(n, hs, {}, {}) IN ~Replicates(d) /\ d.del = "none"
-NoTasks(hs) == \A n \in hs : ~Replicates(Decide27(n, hs, {}, {}))
-\\* a check "replicates" when it hands the replicator a task with at least one candidate node. (With overlapping
-\* rules the code as found keeps calling the replicator with an EMPTY candidate list: a holder remembered from
-\* an earlier rule does not lower the shortage of a later rule - a phantom shortage that copies nothing.)
-Replicates(d) == \E k \in 1..Len(d.tasks) : Len(d.tasks[k].nodes) > 0
-Quiet(hs) == \A n \in hs : LET d == Decide27(n, hs, {}, {}) IN ~Replicates(d) /\ d.del = "none"
-NoTasks(hs) == \A n \in hs : ~Replicates(Decide27(n, hs, {}, {}))
-s\* a check "replicates" when it hands the replicator a task with at least one candidate node. (With overlapping
-\* rules the code as found keeps calling the replicator with an EMPTY candidate list: a holder remembered from
-\* an earlier rule does not lower the shortage of a later rule - a phantom shortage that copies nothing.)
-Replicates(d) == \E k \in 1..Len(d.tasks) : Len(d.tasks[k].nodes) > 0
-Quiet(hs) == \A n \in hs : LET d == Decide27(n, hs, {}, {}) IN ~Replicates(d) /\ d.del = "none"
-NoTasks(hs) == \A n \in hs : ~Replicates(Decide27(n, hs, {}, {}))
-u\* a check "replicates" when it hands the replicator a task with at least one candidate node. (With overlapping
-\* rules the code as found keeps calling the replicator with an EMPTY candidate list: a holder remembered from
-\* an earlier rule does not lower the shortage of a later rule - a phantom shortage that copies nothing.)
-Replicates(d) == \E k \in 1..Len(d.tasks) : Len(d.tasks[k].nodes) > 0
-Quiet(hs) == \A n \in hs : LET d == Decide27(n, hs, {}, {}) IN ~Replicates(d) /\ d.del = "none"
-NoTasks(hs) == \A n \in hs : ~Replicates(Decide27(n, hs, {}, {}))
-b\* a check "replicates" when it hands the replicator a task with at least one candidate node. (With overlapping
-\* rules the code as found keeps calling the replicator with an EMPTY candidate list: a holder remembered from
-\* an earlier rule does not lower the shortage of a later rule - a phantom shortage that copies nothing.)
-Replicates(d) == \E k \in 1..Len(d.tasks) : Len(d.tasks[k].nodes) > 0
-Quiet(hs) == \A n \in hs : LET d == Decide27(n, hs, {}, {}) IN ~Replicates(d) /\ d.del = "none"
-NoTasks(hs) == \A n \in hs : ~Replicates(Decide27(n, hs, {}, {}))
-s\* a check "replicates" when it hands the replicator a task with at least one candidate node. (With overlapping
-\* rules the code as found keeps calling the replicator with an EMPTY candidate list: a holder remembered from
-\* an earlier rule does not lower the shortage of a later rule - a phantom shortage that copies nothing.)
-Replicates(d) == \E k \in 1..Len(d.tasks) : Len(d.tasks[k].nodes) > 0
-Quiet(hs) == \A n \in hs : LET d == Decide27(n, hs, {}, {}) IN ~Replicates(d) /\ d.del = "none"
-NoTasks(hs) == \A n \in hs : ~Replicates(Decide27(n, hs, {}, {}))
-e\* a check "replicates" when it hands the replicator a task with at least one candidate node. (With overlapping
-\* rules the code as found keeps calling the replicator with an EMPTY candidate list: a holder remembered from
-\* an earlier rule does not lower the shortage of a later rule - a phantom shortage that copies nothing.)
-Replicates(d) == \E k \in 1..Len(d.tasks) : Len(d.tasks[k].nodes) > 0
-Quiet(hs) == \A n \in hs : LET d == Decide27(n, hs, {}, {}) IN ~Replicates(d) /\ d.del = "none"
-NoTasks(hs) == \A n \in hs : ~Replicates(Decide27(n, hs, {}, {}))
-t\* a check "replicates" when it hands the replicator a task with at least one candidate node. (With overlapping
-\* rules the code as found keeps calling the replicator with an EMPTY candidate list: a holder remembered from
-\* an earlier rule does not lower the shortage of a later rule - a phantom shortage that copies nothing.)
-Replicates(d) == \E k \in 1..Len(d.tasks) : Len(d.tasks[k].nodes) > 0
-Quiet(hs) == \A n \in hs : LET d == Decide27(n, hs, {}, {}) IN ~Replicates(d) /\ d.del = "none"
-NoTasks(hs) == \A n \in hs : ~Replicates(Decide27(n, hs, {}, {}))
-e\* a check "replicates" when it hands the replicator a task with at least one candidate node. (With overlapping
-\* rules the code as found keeps calling the replicator with an EMPTY candidate list: a holder remembered from
-\* an earlier rule does not lower the shortage of a later rule - a phantom shortage that copies nothing.)
-Replicates(d) == \E k \in 1..Len(d.tasks) : Len(d.tasks[k].nodes) > 0
-Quiet(hs) == \A n \in hs : LET d == Decide27(n, hs, {}, {}) IN ~Replicates(d) /\ d.del = "none"
-NoTasks(hs) == \A n \in hs : ~Replicates(Decide27(n, hs, {}, {}))
-q\* a check "replicates" when it hands the replicator a task with at least one candidate node. (With overlapping
-\* rules the code as found keeps calling the replicator with an EMPTY candidate list: a holder remembered from
-\* an earlier rule does not lower the shortage of a later rule - a phantom shortage that copies nothing.)
-Replicates(d) == \E k \in 1..Len(d.tasks) : Len(d.tasks[k].nodes) > 0
-Quiet(hs) == \A n \in hs : LET d == Decide27(n, hs, {}, {}) IN ~Replicates(d) /\ d.del = "none"
-NoTasks(hs) == \A n \in hs : ~Replicates(Decide27(n, hs, {}, {}))
- \* a check "replicates" when it hands the replicator a task with at least one candidate node. (With overlapping
-\* rules the code as found keeps calling the replicator with an EMPTY candidate list: a holder remembered from
-\* an earlier rule does not lower the shortage of a later rule - a phantom shortage that copies nothing.)
-Replicates(d) == \E k \in 1..Len(d.tasks) : Len(d.tasks[k].nodes) > 0
-Quiet(hs) == \A n \in hs : LET d == Decide27(n, hs, {}, {}) IN ~Replicates(d) /\ d.del = "none"
-NoTasks(hs) == \A n \in hs : ~Replicates(Decide27(n, hs, {}, {}))
-R\* a check "replicates" when it hands the replicator a task with at least one candidate node. (With overlapping
-\* rules the code as found keeps calling the replicator with an EMPTY candidate list: a holder remembered from
-\* an earlier rule does not lower the shortage of a later rule - a phantom shortage that copies nothing.)
-Replicates(d) == \E k \in 1..Len(d.tasks) : Len(d.tasks[k].nodes) > 0
-Quiet(hs) == \A n \in hs : LET d == Decide27(n, hs, {}, {}) IN ~Replicates(d) /\ d.del = "none"
-NoTasks(hs) == \A n \in hs : ~Replicates(Decide27(n, hs, {}, {}))
-a\* a check "replicates" when it hands the replicator a task with at least one candidate node. (With overlapping
-\* rules the code as found keeps calling the replicator with an EMPTY candidate list: a holder remembered from
-\* an earlier rule does not lower the shortage of a later rule - a phantom shortage that copies nothing.)
-Replicates(d) == \E k \in 1..Len(d.tasks) : Len(d.tasks[k].nodes) > 0
-Quiet(hs) == \A n \in hs : LET d == Decide27(n, hs, {}, {}) IN ~Replicates(d) /\ d.del = "none"
-NoTasks(hs) == \A n \in hs : ~Replicates(Decide27(n, hs, {}, {}))
-n\* a check "replicates" when it hands the replicator a task with at least one candidate node. (With overlapping
-\* rules the code as found keeps calling the replicator with an EMPTY candidate list: a holder remembered from
-\* an earlier rule does not lower the shortage of a later rule - a phantom shortage that copies nothing.)
-Replicates(d) == \E k \in 1..Len(d.tasks) : Len(d.tasks[k].nodes) > 0
-Quiet(hs) == \A n \in hs : LET d == Decide27(n, hs, {}, {}) IN ~Replicates(d) /\ d.del = "none"
-NoTasks(hs) == \A n \in hs : ~Replicates(Decide27(n, hs, {}, {}))
-g\* a check "replicates" when it hands the replicator a task with at least one candidate node. (With overlapping
-\* rules the code as found keeps calling the replicator with an EMPTY candidate list: a holder remembered from
-\* an earlier rule does not lower the shortage of a later rule - a phantom shortage that copies nothing.)
-Replicates(d) == \E k \in 1..Len(d.tasks) : Len(d.tasks[k].nodes) > 0
-Quiet(hs) == \A n \in hs : LET d == Decide27(n, hs, {}, {}) IN ~Replicates(d) /\ d.del = "none"
-NoTasks(hs) == \A n \in hs : ~Replicates(Decide27(n, hs, {}, {}))
-e\* a check "replicates" when it hands the replicator a task with at least one candidate node. (With overlapping
-\* rules the code as found keeps calling the replicator with an EMPTY candidate list: a holder remembered from
-\* an earlier rule does not lower the shortage of a later rule - a phantom shortage that copies nothing.)
-Replicates(d) == \E k \in 1..Len(d.tasks) : Len(d.tasks[k].nodes) > 0
-Quiet(hs) == \A n \in hs : LET d == Decide27(n, hs, {}, {}) IN ~Replicates(d) /\ d.del = "none"
-NoTasks(hs) == \A n \in hs : ~Replicates(Decide27(n, hs, {}, {}))
-(\* a check "replicates" when it hands the replicator a task with at least one candidate node. (With overlapping
-\* rules the code as found keeps calling the replicator with an EMPTY candidate list: a holder remembered from
-\* an earlier rule does not lower the shortage of a later rule - a phantom shortage that copies nothing.)
-Replicates(d) == \E k \in 1..Len(d.tasks) : Len(d.tasks[k].nodes) > 0
-Quiet(hs) == \A n \in hs : LET d == Decide27(n, hs, {}, {}) IN ~Replicates(d) /\ d.del = "none"
-NoTasks(hs) == \A n \in hs : ~Replicates(Decide27(n, hs, {}, {}))
-l\* a check "replicates" when it hands the replicator a task with at least one candidate node. (With overlapping
-\* rules the code as found keeps calling the replicator with an EMPTY candidate list: a holder remembered from
-\* an earlier rule does not lower the shortage of a later rule - a phantom shortage that copies nothing.)
-Replicates(d) == \E k \in 1..Len(d.tasks) : Len(d.tasks[k].nodes) > 0
-Quiet(hs) == \A n \in hs : LET d == Decide27(n, hs, {}, {}) IN ~Replicates(d) /\ d.del = "none"
-NoTasks(hs) == \A n \in hs : ~Replicates(Decide27(n, hs, {}, {}))
-a\* a check "replicates" when it hands the replicator a task with at least one candidate node. (With overlapping
-\* rules the code as found keeps calling the replicator with an EMPTY candidate list: a holder remembered from
-\* an earlier rule does not lower the shortage of a later rule - a phantom shortage that copies nothing.)
-Replicates(d) == \E k \in 1..Len(d.tasks) : Len(d.tasks[k].nodes) > 0
-Quiet(hs) == \A n \in hs : LET d == Decide27(n, hs, {}, {}) IN ~Replicates(d) /\ d.del = "none"
-NoTasks(hs) == \A n \in hs : ~Replicates(Decide27(n, hs, {}, {}))
-s\* a check "replicates" when it hands the replicator a task with at least one candidate node. (With overlapping
-\* rules the code as found keeps calling the replicator with an EMPTY candidate list: a holder remembered from
-\* an earlier rule does not lower the shortage of a later rule - a phantom shortage that copies nothing.)
-Replicates(d) == \E k \in 1..Len(d.tasks) : Len(d.tasks[k].nodes) > 0
-Quiet(hs) == \A n \in hs : LET d == Decide27(n, hs, {}, {}) IN ~Replicates(d) /\ d.del = "none"
-NoTasks(hs) == \A n \in hs : ~Replicates(Decide27(n, hs, {}, {}))
-t\* a check "replicates" when it hands the replicator a task with at least one candidate node. (With overlapping
-\* rules the code as found keeps calling the replicator with an EMPTY candidate list: a holder remembered from
-\* an earlier rule does not lower the shortage of a later rule - a phantom shortage that copies nothing.)
-Replicates(d) == \E k \in 1..Len(d.tasks) : Len(d.tasks[k].nodes) > 0
-Quiet(hs) == \A n \in hs : LET d == Decide27(n, hs, {}, {}) IN ~Replicates(d) /\ d.del = "none"
-NoTasks(hs) == \A n \in hs : ~Replicates(Decide27(n, hs, {}, {}))
-.\* a check "replicates" when it hands the replicator a task with at least one candidate node. (With overlapping
-\* rules the code as found keeps calling the replicator with an EMPTY candidate list: a holder remembered from
-\* an earlier rule does not lower the shortage of a later rule - a phantom shortage that copies nothing.)
-Replicates(d) == \E k \in 1..Len(d.tasks) : Len(d.tasks[k].nodes) > 0
-Quiet(hs) == \A n \in hs : LET d == Decide27(n, hs, {}, {}) IN ~Replicates(d) /\ d.del = "none"
-NoTasks(hs) == \A n \in hs : ~Replicates(Decide27(n, hs, {}, {}))
-t\* a check "replicates" when it hands the replicator a task with at least one candidate node. (With overlapping
-\* rules the code as found keeps calling the replicator with an EMPTY candidate list: a holder remembered from
-\* an earlier rule does not lower the shortage of a later rule - a phantom shortage that copies nothing.)
-Replicates(d) == \E k \in 1..Len(d.tasks) : Len(d.tasks[k].nodes) > 0
-Quiet(hs) == \A n \in hs : LET d == Decide27(n, hs, {}, {}) IN ~Replicates(d) /\ d.del = "none"
-NoTasks(hs) == \A n \in hs : ~Replicates(Decide27(n, hs, {}, {}))
-a\* a check "replicates" when it hands the replicator a task with at least one candidate node. (With overlapping
-\* rules the code as found keeps calling the replicator with an EMPTY candidate list: a holder remembered from
-\* an earlier rule does not lower the shortage of a later rule - a phantom shortage that copies nothing.)
-Replicates(d) == \E k \in 1..Len(d.tasks) : Len(d.tasks[k].nodes) > 0
-Quiet(hs) == \A n \in hs : LET d == Decide27(n, hs, {}, {}) IN ~Replicates(d) /\ d.del = "none"
-NoTasks(hs) == \A n \in hs : ~Replicates(Decide27(n, hs, {}, {}))
-s\* a check "replicates" when it hands the replicator a task with at least one candidate node. (With overlapping
-\* rules the code as found keeps calling the replicator with an EMPTY candidate list: a holder remembered from
-\* an earlier rule does not lower the shortage of a later rule - a phantom shortage that copies nothing.)
-Replicates(d) == \E k \in 1..Len(d.tasks) : Len(d.tasks[k].nodes) > 0
-Quiet(hs) == \A n \in hs : LET d == Decide27(n, hs, {}, {}) IN ~Replicates(d) /\ d.del = "none"
-NoTasks(hs) == \A n \in hs : ~Replicates(Decide27(n, hs, {}, {}))
-k\* a check "replicates" when it hands the replicator a task with at least one candidate node. (With overlapping
-\* rules the code as found keeps calling the replicator with an EMPTY candidate list: a holder remembered from
-\* an earlier rule does not lower the shortage of a later rule - a phantom shortage that copies nothing.)
-Replicates(d) == \E k \in 1..Len(d.tasks) : Len(d.tasks[k].nodes) > 0
-Quiet(hs) == \A n \in hs : LET d == Decide27(n, hs, {}, {}) IN ~Replicates(d) /\ d.del = "none"
-NoTasks(hs) == \A n \in hs : ~Replicates(Decide27(n, hs, {}, {}))
-s\* a check "replicates" when it hands the replicator a task with at least one candidate node. (With overlapping
-\* rules the code as found keeps calling the replicator with an EMPTY candidate list: a holder remembered from
-\* an earlier rule does not lower the shortage of a later rule - a phantom shortage that copies nothing.)
-Replicates(d) == \E k \in 1..Len(d.tasks) : Len(d.tasks[k].nodes) > 0
-Quiet(hs) == \A n \in hs : LET d == Decide27(n, hs, {}, {}) IN ~Replicates(d) /\ d.del = "none"
-NoTasks(hs) == \A n \in hs : ~Replicates(Decide27(n, hs, {}, {}))
-[\* a check "replicates" when it hands the replicator a task with at least one candidate node. (With overlapping
-\* rules the code as found keeps calling the replicator with an EMPTY candidate list: a holder remembered from
-\* an earlier rule does not lower the shortage of a later rule - a phantom shortage that copies nothing.)
-Replicates(d) == \E k \in 1..Len(d.tasks) : Len(d.tasks[k].nodes) > 0
-Quiet(hs) == \A n \in hs : LET d == Decide27(n, hs, {}, {}) IN ~Replicates(d) /\ d.del = "none"
-NoTasks(hs) == \A n \in hs : ~Replicates(Decide27(n, hs, {}, {}))
-k\* a check "replicates" when it hands the replicator a task with at least one candidate node. (With overlapping
-\* rules the code as found keeps calling the replicator with an EMPTY candidate list: a holder remembered from
-\* an earlier rule does not lower the shortage of a later rule - a phantom shortage that copies nothing.)
-Replicates(d) == \E k \in 1..Len(d.tasks) : Len(d.tasks[k].nodes) > 0
-Quiet(hs) == \A n \in hs : LET d == Decide27(n, hs, {}, {}) IN ~Replicates(d) /\ d.del = "none"
-NoTasks(hs) == \A n \in hs : ~Replicates(Decide27(n, hs, {}, {}))
-]\* a check "replicates" when it hands the replicator a task with at least one candidate node. (With overlapping
-\* rules the code as found keeps calling the replicator with an EMPTY candidate list: a holder remembered from
-\* an earlier rule does not lower the shortage of a later rule - a phantom shortage that copies nothing.)
-Replicates(d) == \E k \in 1..Len(d.tasks) : Len(d.tasks[k].nodes) > 0
-Quiet(hs) == \A n \in hs : LET d == Decide27(n, hs, {}, {}) IN ~Replicates(d) /\ d.del = "none"
-NoTasks(hs) == \A n \in hs : ~Replicates(Decide27(n, hs, {}, {}))
-.\* a check "replicates" when it hands the replicator a task with at least one candidate node. (With overlapping
-\* rules the code as found keeps calling the replicator with an EMPTY candidate list: a holder remembered from
-\* an earlier rule does not lower the shortage of a later rule - a phantom shortage that copies nothing.)
-Replicates(d) == \E k \in 1..Len(d.tasks) : Len(d.tasks[k].nodes) > 0
-Quiet(hs) == \A n \in hs : LET d == Decide27(n, hs, {}, {}) IN ~Replicates(d) /\ d.del = "none"
-NoTasks(hs) == \A n \in hs : ~Replicates(Decide27(n, hs, {}, {}))
-n\* a check "replicates" when it hands the replicator a task with at least one candidate node. (With overlapping
-\* rules the code as found keeps calling the replicator with an EMPTY candidate list: a holder remembered from
-\* an earlier rule does not lower the shortage of a later rule - a phantom shortage that copies nothing.)
-Replicates(d) == \E k \in 1..Len(d.tasks) : Len(d.tasks[k].nodes) > 0
-Quiet(hs) == \A n \in hs : LET d == Decide27(n, hs, {}, {}) IN ~Replicates(d) /\ d.del = "none"
-NoTasks(hs) == \A n \in hs : ~Replicates(Decide27(n, hs, {}, {}))
-o\* a check "replicates" when it hands the replicator a task with at least one candidate node. (With overlapping
-\* rules the code as found keeps calling the replicator with an EMPTY candidate list: a holder remembered from
-\* an earlier rule does not lower the shortage of a later rule - a phantom shortage that copies nothing.)
-Replicates(d) == \E k \in 1..Len(d.tasks) : Len(d.tasks[k].nodes) > 0
-Quiet(hs) == \A n \in hs : LET d == Decide27(n, hs, {}, {}) IN ~Replicates(d) /\ d.del = "none"
-NoTasks(hs) == \A n \in hs : ~Replicates(Decide27(n, hs, {}, {}))
-d\* a check "replicates" when it hands the replicator a task with at least one candidate node. (With overlapping
-\* rules the code as found keeps calling the replicator with an EMPTY candidate list: a holder remembered from
-\* an earlier rule does not lower the shortage of a later rule - a phantom shortage that copies nothing.)
-Replicates(d) == \E k \in 1..Len(d.tasks) : Len(d.tasks[k].nodes) > 0
-Quiet(hs) == \A n \in hs : LET d == Decide27(n, hs, {}, {}) IN ~Replicates(d) /\ d.del = "none"
-NoTasks(hs) == \A n \in hs : ~Replicates(Decide27(n, hs, {}, {}))
-e\* a check "replicates" when it hands the replicator a task with at least one candidate node. (With overlapping
-\* rules the code as found keeps calling the replicator with an EMPTY candidate list: a holder remembered from
-\* an earlier rule does not lower the shortage of a later rule - a phantom shortage that copies nothing.)
-Replicates(d) == \E k \in 1..Len(d.tasks) : Len(d.tasks[k].nodes) > 0
-Quiet(hs) == \A n \in hs : LET d == Decide27(n, hs, {}, {}) IN ~Replicates(d) /\ d.del = "none"
-NoTasks(hs) == \A n \in hs : ~Replicates(Decide27(n, hs, {}, {}))
-s\* a check "replicates" when it hands the replicator a task with at least one candidate node. (With overlapping
-\* rules the code as found keeps calling the replicator with an EMPTY candidate list: a holder remembered from
-\* an earlier rule does not lower the shortage of a later rule - a phantom shortage that copies nothing.)
-Replicates(d) == \E k \in 1..Len(d.tasks) : Len(d.tasks[k].nodes) > 0
-Quiet(hs) == \A n \in hs : LET d == Decide27(n, hs, {}, {}) IN ~Replicates(d) /\ d.del = "none"
-NoTasks(hs) == \A n \in hs : ~Replicates(Decide27(n, hs, {}, {}))
-)\* a check "replicates" when it hands the replicator a task with at least one candidate node. (With overlapping
-\* rules the code as found keeps calling the replicator with an EMPTY candidate list: a holder remembered from
-\* an earlier rule does not lower the shortage of a later rule - a phantom shortage that copies nothing.)
-Replicates(d) == \E k \in 1..Len(d.tasks) : Len(d.tasks[k].nodes) > 0
-Quiet(hs) == \A n \in hs : LET d == Decide27(n, hs, {}, {}) IN ~Replicates(d) /\ d.del = "none"
-NoTasks(hs) == \A n \in hs : ~Replicates(Decide27(n, hs, {}, {}))
-
-\* a check "replicates" when it hands the replicator a task with at least one candidate node. (With overlapping
-\* rules the code as found keeps calling the replicator with an EMPTY candidate list: a holder remembered from
-\* an earlier rule does not lower the shortage of a later rule - a phantom shortage that copies nothing.)
-Replicates(d) == \E k \in 1..Len(d.tasks) : Len(d.tasks[k].nodes) > 0
-Quiet(hs) == \A n \in hs : LET d == Decide27(n, hs, {}, {}) IN ~Replicates(d) /\ d.del = "none"
-NoTasks(hs) == \A n \in hs : ~Replicates(Decide27(n, hs, {}, {}))
- \* a check "replicates" when it hands the replicator a task with at least one candidate node. (With overlapping
-\* rules the code as found keeps calling the replicator with an EMPTY candidate list: a holder remembered from
-\* an earlier rule does not lower the shortage of a later rule - a phantom shortage that copies nothing.)
-Replicates(d) == \E k \in 1..Len(d.tasks) : Len(d.tasks[k].nodes) > 0
-Quiet(hs) == \A n \in hs : LET d == Decide27(n, hs, {}, {}) IN ~Replicates(d) /\ d.del = "none"
-NoTasks(hs) == \A n \in hs : ~Replicates(Decide27(n, hs, {}, {}))
- \* a check "replicates" when it hands the replicator a task with at least one candidate node. (With overlapping
-\* rules the code as found keeps calling the replicator with an EMPTY candidate list: a holder remembered from
-\* an earlier rule does not lower the shortage of a later rule - a phantom shortage that copies nothing.)
-Replicates(d) == \E k \in 1..Len(d.tasks) : Len(d.tasks[k].nodes) > 0
-Quiet(hs) == \A n \in hs : LET d == Decide27(n, hs, {}, {}) IN ~Replicates(d) /\ d.del = "none"
-NoTasks(hs) == \A n \in hs : ~Replicates(Decide27(n, hs, {}, {}))
- \* a check "replicates" when it hands the replicator a task with at least one candidate node. (With overlapping
-\* rules the code as found keeps calling the replicator with an EMPTY candidate list: a holder remembered from
-\* an earlier rule does not lower the shortage of a later rule - a phantom shortage that copies nothing.)
-Replicates(d) == \E k \in 1..Len(d.tasks) : Len(d.tasks[k].nodes) > 0
-Quiet(hs) == \A n \in hs : LET d == Decide27(n, hs, {}, {}) IN ~Replicates(d) /\ d.del = "none"
-NoTasks(hs) == \A n \in hs : ~Replicates(Decide27(n, hs, {}, {}))
- \* a check "replicates" when it hands the replicator a task with at least one candidate node. (With overlapping
-\* rules the code as found keeps calling the replicator with an EMPTY candidate list: a holder remembered from
-\* an earlier rule does not lower the shortage of a later rule - a phantom shortage that copies nothing.)
-Replicates(d) == \E k \in 1..Len(d.tasks) : Len(d.tasks[k].nodes) > 0
-Quiet(hs) == \A n \in hs : LET d == Decide27(n, hs, {}, {}) IN ~Replicates(d) /\ d.del = "none"
-NoTasks(hs) == \A n \in hs : ~Replicates(Decide27(n, hs, {}, {}))
- \* a check "replicates" when it hands the replicator a task with at least one candidate node. (With overlapping
-\* rules the code as found keeps calling the replicator with an EMPTY candidate list: a holder remembered from
-\* an earlier rule does not lower the shortage of a later rule - a phantom shortage that copies nothing.)
-Replicates(d) == \E k \in 1..Len(d.tasks) : Len(d.tasks[k].nodes) > 0
-Quiet(hs) == \A n \in hs : LET d == Decide27(n, hs, {}, {}) IN ~Replicates(d) /\ d.del = "none"
-NoTasks(hs) == \A n \in hs : ~Replicates(Decide27(n, hs, {}, {}))
- \* a check "replicates" when it hands the replicator a task with at least one candidate node. (With overlapping
-\* rules the code as found keeps calling the replicator with an EMPTY candidate list: a holder remembered from
-\* an earlier rule does not lower the shortage of a later rule - a phantom shortage that copies nothing.)
-Replicates(d) == \E k \in 1..Len(d.tasks) : Len(d.tasks[k].nodes) > 0
-Quiet(hs) == \A n \in hs : LET d == Decide27(n, hs, {}, {}) IN ~Replicates(d) /\ d.del = "none"
-NoTasks(hs) == \A n \in hs : ~Replicates(Decide27(n, hs, {}, {}))
- \* a check "replicates" when it hands the replicator a task with at least one candidate node. (With overlapping
-\* rules the code as found keeps calling the replicator with an EMPTY candidate list: a holder remembered from
-\* an earlier rule does not lower the shortage of a later rule - a phantom shortage that copies nothing.)
-Replicates(d) == \E k \in 1..Len(d.tasks) : Len(d.tasks[k].nodes) > 0
-Quiet(hs) == \A n \in hs : LET d == Decide27(n, hs, {}, {}) IN ~Replicates(d) /\ d.del = "none"
-NoTasks(hs) == \A n \in hs : ~Replicates(Decide27(n, hs, {}, {}))
- \* a check "replicates" when it hands the replicator a task with at least one candidate node. (With overlapping
-\* rules the code as found keeps calling the replicator with an EMPTY candidate list: a holder remembered from
-\* an earlier rule does not lower the shortage of a later rule - a phantom shortage that copies nothing.)
-Replicates(d) == \E k \in 1..Len(d.tasks) : Len(d.tasks[k].nodes) > 0
-Quiet(hs) == \A n \in hs : LET d == Decide27(n, hs, {}, {}) IN ~Replicates(d) /\ d.del = "none"
-NoTasks(hs) == \A n \in hs : ~Replicates(Decide27(n, hs, {}, {}))
- \* a check "replicates" when it hands the replicator a task with at least one candidate node. (With overlapping
-\* rules the code as found keeps calling the replicator with an EMPTY candidate list: a holder remembered from
-\* an earlier rule does not lower the shortage of a later rule - a phantom shortage that copies nothing.)
-Replicates(d) == \E k \in 1..Len(d.tasks) : Len(d.tasks[k].nodes) > 0
-Quiet(hs) == \A n \in hs : LET d == Decide27(n, hs, {}, {}) IN ~Replicates(d) /\ d.del = "none"
-NoTasks(hs) == \A n \in hs : ~Replicates(Decide27(n, hs, {}, {}))
- \* a check "replicates" when it hands the replicator a task with at least one candidate node. (With overlapping
-\* rules the code as found keeps calling the replicator with an EMPTY candidate list: a holder remembered from
-\* an earlier rule does not lower the shortage of a later rule - a phantom shortage that copies nothing.)
-Replicates(d) == \E k \in 1..Len(d.tasks) : Len(d.tasks[k].nodes) > 0
-Quiet(hs) == \A n \in hs : LET d == Decide27(n, hs, {}, {}) IN ~Replicates(d) /\ d.del = "none"
-NoTasks(hs) == \A n \in hs : ~Replicates(Decide27(n, hs, {}, {}))
- \* a check "replicates" when it hands the replicator a task with at least one candidate node. (With overlapping
-\* rules the code as found keeps calling the replicator with an EMPTY candidate list: a holder remembered from
-\* an earlier rule does not lower the shortage of a later rule - a phantom shortage that copies nothing.)
-Replicates(d) == \E k \in 1..Len(d.tasks) : Len(d.tasks[k].nodes) > 0
-Quiet(hs) == \A n \in hs : LET d == Decide27(n, hs, {}, {}) IN ~Replicates(d) /\ d.del = "none"
-NoTasks(hs) == \A n \in hs : ~Replicates(Decide27(n, hs, {}, {}))
- \* a check "replicates" when it hands the replicator a task with at least one candidate node. (With overlapping
-\* rules the code as found keeps calling the replicator with an EMPTY candidate list: a holder remembered from
-\* an earlier rule does not lower the shortage of a later rule - a phantom shortage that copies nothing.)
-Replicates(d) == \E k \in 1..Len(d.tasks) : Len(d.tasks[k].nodes) > 0
-Quiet(hs) == \A n \in hs : LET d == Decide27(n, hs, {}, {}) IN ~Replicates(d) /\ d.del = "none"
-NoTasks(hs) == \A n \in hs : ~Replicates(Decide27(n, hs, {}, {}))
-/\* a check "replicates" when it hands the replicator a task with at least one candidate node. (With overlapping
-\* rules the code as found keeps calling the replicator with an EMPTY candidate list: a holder remembered from
-\* an earlier rule does not lower the shortage of a later rule - a phantom shortage that copies nothing.)
-Replicates(d) == \E k \in 1..Len(d.tasks) : Len(d.tasks[k].nodes) > 0
-Quiet(hs) == \A n \in hs : LET d == Decide27(n, hs, {}, {}) IN ~Replicates(d) /\ d.del = "none"
-NoTasks(hs) == \A n \in hs : ~Replicates(Decide27(n, hs, {}, {}))
-\\* a check "replicates" when it hands the replicator a task with at least one candidate node. (With overlapping
-\* rules the code as found keeps calling the replicator with an EMPTY candidate list: a holder remembered from
-\* an earlier rule does not lower the shortage of a later rule - a phantom shortage that copies nothing.)
-Replicates(d) == \E k \in 1..Len(d.tasks) : Len(d.tasks[k].nodes) > 0
-Quiet(hs) == \A n \in hs : LET d == Decide27(n, hs, {}, {}) IN ~Replicates(d) /\ d.del = "none"
-NoTasks(hs) == \A n \in hs : ~Replicates(Decide27(n, hs, {}, {}))
- \* a check "replicates" when it hands the replicator a task with at least one candidate node. (With overlapping
-\* rules the code as found keeps calling the replicator with an EMPTY candidate list: a holder remembered from
-\* an earlier rule does not lower the shortage of a later rule - a phantom shortage that copies nothing.)
-Replicates(d) == \E k \in 1..Len(d.tasks) : Len(d.tasks[k].nodes) > 0
-Quiet(hs) == \A n \in hs : LET d == Decide27(n, hs, {}, {}) IN ~Replicates(d) /\ d.del = "none"
-NoTasks(hs) == \A n \in hs : ~Replicates(Decide27(n, hs, {}, {}))
-R\* a check "replicates" when it hands the replicator a task with at least one candidate node. (With overlapping
-\* rules the code as found keeps calling the replicator with an EMPTY candidate list: a holder remembered from
-\* an earlier rule does not lower the shortage of a later rule - a phantom shortage that copies nothing.)
-Replicates(d) == \E k \in 1..Len(d.tasks) : Len(d.tasks[k].nodes) > 0
-Quiet(hs) == \A n \in hs : LET d == Decide27(n, hs, {}, {}) IN ~Replicates(d) /\ d.del = "none"
-NoTasks(hs) == \A n \in hs : ~Replicates(Decide27(n, hs, {}, {}))
-a\* a check "replicates" when it hands the replicator a task with at least one candidate node. (With overlapping
-\* rules the code as found keeps calling the replicator with an EMPTY candidate list: a holder remembered from
-\* an earlier rule does not lower the shortage of a later rule - a phantom shortage that copies nothing.)
-Replicates(d) == \E k \in 1..Len(d.tasks) : Len(d.tasks[k].nodes) > 0
-Quiet(hs) == \A n \in hs : LET d == Decide27(n, hs, {}, {}) IN ~Replicates(d) /\ d.del = "none"
-NoTasks(hs) == \A n \in hs : ~Replicates(Decide27(n, hs, {}, {}))
-n\* a check "replicates" when it hands the replicator a task with at least one candidate node. (With overlapping
-\* rules the code as found keeps calling the replicator with an EMPTY candidate list: a holder remembered from
-\* an earlier rule does not lower the shortage of a later rule - a phantom shortage that copies nothing.)
-Replicates(d) == \E k \in 1..Len(d.tasks) : Len(d.tasks[k].nodes) > 0
-Quiet(hs) == \A n \in hs : LET d == Decide27(n, hs, {}, {}) IN ~Replicates(d) /\ d.del = "none"
-NoTasks(hs) == \A n \in hs : ~Replicates(Decide27(n, hs, {}, {}))
-g\* a check "replicates" when it hands the replicator a task with at least one candidate node. (With overlapping
-\* rules the code as found keeps calling the replicator with an EMPTY candidate list: a holder remembered from
-\* an earlier rule does not lower the shortage of a later rule - a phantom shortage that copies nothing.)
-Replicates(d) == \E k \in 1..Len(d.tasks) : Len(d.tasks[k].nodes) > 0
-Quiet(hs) == \A n \in hs : LET d == Decide27(n, hs, {}, {}) IN ~Replicates(d) /\ d.del = "none"
-NoTasks(hs) == \A n \in hs : ~Replicates(Decide27(n, hs, {}, {}))
-e\* a check "replicates" when it hands the replicator a task with at least one candidate node. (With overlapping
-\* rules the code as found keeps calling the replicator with an EMPTY candidate list: a holder remembered from
-\* an earlier rule does not lower the shortage of a later rule - a phantom shortage that copies nothing.)
-Replicates(d) == \E k \in 1..Len(d.tasks) : Len(d.tasks[k].nodes) > 0
-Quiet(hs) == \A n \in hs : LET d == Decide27(n, hs, {}, {}) IN ~Replicates(d) /\ d.del = "none"
-NoTasks(hs) == \A n \in hs : ~Replicates(Decide27(n, hs, {}, {}))
-(\* a check "replicates" when it hands the replicator a task with at least one candidate node. (With overlapping
-\* rules the code as found keeps calling the replicator with an EMPTY candidate list: a holder remembered from
-\* an earlier rule does not lower the shortage of a later rule - a phantom shortage that copies nothing.)
-Replicates(d) == \E k \in 1..Len(d.tasks) : Len(d.tasks[k].nodes) > 0
-Quiet(hs) == \A n \in hs : LET d == Decide27(n, hs, {}, {}) IN ~Replicates(d) /\ d.del = "none"
-NoTasks(hs) == \A n \in hs : ~Replicates(Decide27(n, hs, {}, {}))
-l\* a check "replicates" when it hands the replicator a task with at least one candidate node. (With overlapping
-\* rules the code as found keeps calling the replicator with an EMPTY candidate list: a holder remembered from
-\* an earlier rule does not lower the shortage of a later rule - a phantom shortage that copies nothing.)
-Replicates(d) == \E k \in 1..Len(d.tasks) : Len(d.tasks[k].nodes) > 0
-Quiet(hs) == \A n \in hs : LET d == Decide27(n, hs, {}, {}) IN ~Replicates(d) /\ d.del = "none"
-NoTasks(hs) == \A n \in hs : ~Replicates(Decide27(n, hs, {}, {}))
-a\* a check "replicates" when it hands the replicator a task with at least one candidate node. (With overlapping
-\* rules the code as found keeps calling the replicator with an EMPTY candidate list: a holder remembered from
-\* an earlier rule does not lower the shortage of a later rule - a phantom shortage that copies nothing.)
-Replicates(d) == \E k \in 1..Len(d.tasks) : Len(d.tasks[k].nodes) > 0
-Quiet(hs) == \A n \in hs : LET d == Decide27(n, hs, {}, {}) IN ~Replicates(d) /\ d.del = "none"
-NoTasks(hs) == \A n \in hs : ~Replicates(Decide27(n, hs, {}, {}))
-s\* a check "replicates" when it hands the replicator a task with at least one candidate node. (With overlapping
-\* rules the code as found keeps calling the replicator with an EMPTY candidate list: a holder remembered from
-\* an earlier rule does not lower the shortage of a later rule - a phantom shortage that copies nothing.)
-Replicates(d) == \E k \in 1..Len(d.tasks) : Len(d.tasks[k].nodes) > 0
-Quiet(hs) == \A n \in hs : LET d == Decide27(n, hs, {}, {}) IN ~Replicates(d) /\ d.del = "none"
-NoTasks(hs) == \A n \in hs : ~Replicates(Decide27(n, hs, {}, {}))
-t\* a check "replicates" when it hands the replicator a task with at least one candidate node. (With overlapping
-\* rules the code as found keeps calling the replicator with an EMPTY candidate list: a holder remembered from
-\* an earlier rule does not lower the shortage of a later rule - a phantom shortage that copies nothing.)
-Replicates(d) == \E k \in 1..Len(d.tasks) : Len(d.tasks[k].nodes) > 0
-Quiet(hs) == \A n \in hs : LET d == Decide27(n, hs, {}, {}) IN ~Replicates(d) /\ d.del = "none"
-NoTasks(hs) == \A n \in hs : ~Replicates(Decide27(n, hs, {}, {}))
-.\* a check "replicates" when it hands the replicator a task with at least one candidate node. (With overlapping
-\* rules the code as found keeps calling the replicator with an EMPTY candidate list: a holder remembered from
-\* an earlier rule does not lower the shortage of a later rule - a phantom shortage that copies nothing.)
-Replicates(d) == \E k \in 1..Len(d.tasks) : Len(d.tasks[k].nodes) > 0
-Quiet(hs) == \A n \in hs : LET d == Decide27(n, hs, {}, {}) IN ~Replicates(d) /\ d.del = "none"
-NoTasks(hs) == \A n \in hs : ~Replicates(Decide27(n, hs, {}, {}))
-t\* a check "replicates" when it hands the replicator a task with at least one candidate node. (With overlapping
-\* rules the code as found keeps calling the replicator with an EMPTY candidate list: a holder remembered from
-\* an earlier rule does not lower the shortage of a later rule - a phantom shortage that copies nothing.)
-Replicates(d) == \E k \in 1..Len(d.tasks) : Len(d.tasks[k].nodes) > 0
-Quiet(hs) == \A n \in hs : LET d == Decide27(n, hs, {}, {}) IN ~Replicates(d) /\ d.del = "none"
-NoTasks(hs) == \A n \in hs : ~Replicates(Decide27(n, hs, {}, {}))
-a\* a check "replicates" when it hands the replicator a task with at least one candidate node. (With overlapping
-\* rules the code as found keeps calling the replicator with an EMPTY candidate list: a holder remembered from
-\* an earlier rule does not lower the shortage of a later rule - a phantom shortage that copies nothing.)
-Replicates(d) == \E k \in 1..Len(d.tasks) : Len(d.tasks[k].nodes) > 0
-Quiet(hs) == \A n \in hs : LET d == Decide27(n, hs, {}, {}) IN ~Replicates(d) /\ d.del = "none"
-NoTasks(hs) == \A n \in hs : ~Replicates(Decide27(n, hs, {}, {}))
-s\* a check "replicates" when it hands the replicator a task with at least one candidate node. (With overlapping
-\* rules the code as found keeps calling the replicator with an EMPTY candidate list: a holder remembered from
-\* an earlier rule does not lower the shortage of a later rule - a phantom shortage that copies nothing.)
-Replicates(d) == \E k \in 1..Len(d.tasks) : Len(d.tasks[k].nodes) > 0
-Quiet(hs) == \A n \in hs : LET d == Decide27(n, hs, {}, {}) IN ~Replicates(d) /\ d.del = "none"
-NoTasks(hs) == \A n \in hs : ~Replicates(Decide27(n, hs, {}, {}))
-k\* a check "replicates" when it hands the replicator a task with at least one candidate node. (With overlapping
-\* rules the code as found keeps calling the replicator with an EMPTY candidate list: a holder remembered from
-\* an earlier rule does not lower the shortage of a later rule - a phantom shortage that copies nothing.)
-Replicates(d) == \E k \in 1..Len(d.tasks) : Len(d.tasks[k].nodes) > 0
-Quiet(hs) == \A n \in hs : LET d == Decide27(n, hs, {}, {}) IN ~Replicates(d) /\ d.del = "none"
-NoTasks(hs) == \A n \in hs : ~Replicates(Decide27(n, hs, {}, {}))
-s\* a check "replicates" when it hands the replicator a task with at least one candidate node. (With overlapping
-\* rules the code as found keeps calling the replicator with an EMPTY candidate list: a holder remembered from
-\* an earlier rule does not lower the shortage of a later rule - a phantom shortage that copies nothing.)
-Replicates(d) == \E k \in 1..Len(d.tasks) : Len(d.tasks[k].nodes) > 0
-Quiet(hs) == \A n \in hs : LET d == Decide27(n, hs, {}, {}) IN ~Replicates(d) /\ d.del = "none"
-NoTasks(hs) == \A n \in hs : ~Replicates(Decide27(n, hs, {}, {}))
-[\* a check "replicates" when it hands the replicator a task with at least one candidate node. (With overlapping
-\* rules the code as found keeps calling the replicator with an EMPTY candidate list: a holder remembered from
-\* an earlier rule does not lower the shortage of a later rule - a phantom shortage that copies nothing.)
-Replicates(d) == \E k \in 1..Len(d.tasks) : Len(d.tasks[k].nodes) > 0
-Quiet(hs) == \A n \in hs : LET d == Decide27(n, hs, {}, {}) IN ~Replicates(d) /\ d.del = "none"
-NoTasks(hs) == \A n \in hs : ~Replicates(Decide27(n, hs, {}, {}))
-k\* a check "replicates" when it hands the replicator a task with at least one candidate node. (With overlapping
-\* rules the code as found keeps calling the replicator with an EMPTY candidate list: a holder remembered from
-\* an earlier rule does not lower the shortage of a later rule - a phantom shortage that copies nothing.)
-Replicates(d) == \E k \in 1..Len(d.tasks) : Len(d.tasks[k].nodes) > 0
-Quiet(hs) == \A n \in hs : LET d == Decide27(n, hs, {}, {}) IN ~Replicates(d) /\ d.del = "none"
-NoTasks(hs) == \A n \in hs : ~Replicates(Decide27(n, hs, {}, {}))
-]\* a check "replicates" when it hands the replicator a task with at least one candidate node. (With overlapping
-\* rules the code as found keeps calling the replicator with an EMPTY candidate list: a holder remembered from
-\* an earlier rule does not lower the shortage of a later rule - a phantom shortage that copies nothing.)
-Replicates(d) == \E k \in 1..Len(d.tasks) : Len(d.tasks[k].nodes) > 0
-Quiet(hs) == \A n \in hs : LET d == Decide27(n, hs, {}, {}) IN ~Replicates(d) /\ d.del = "none"
-NoTasks(hs) == \A n \in hs : ~Replicates(Decide27(n, hs, {}, {}))
-.\* a check "replicates" when it hands the replicator a task with at least one candidate node. (With overlapping
-\* rules the code as found keeps calling the replicator with an EMPTY candidate list: a holder remembered from
-\* an earlier rule does not lower the shortage of a later rule - a phantom shortage that copies nothing.)
-Replicates(d) == \E k \in 1..Len(d.tasks) : Len(d.tasks[k].nodes) > 0
-Quiet(hs) == \A n \in hs : LET d == Decide27(n, hs, {}, {}) IN ~Replicates(d) /\ d.del = "none"
-NoTasks(hs) == \A n \in hs : ~Replicates(Decide27(n, hs, {}, {}))
-o\* a check "replicates" when it hands the replicator a task with at least one candidate node. (With overlapping
-\* rules the code as found keeps calling the replicator with an EMPTY candidate list: a holder remembered from
-\* an earlier rule does not lower the shortage of a later rule - a phantom shortage that copies nothing.)
-Replicates(d) == \E k \in 1..Len(d.tasks) : Len(d.tasks[k].nodes) > 0
-Quiet(hs) == \A n \in hs : LET d == Decide27(n, hs, {}, {}) IN ~Replicates(d) /\ d.del = "none"
-NoTasks(hs) == \A n \in hs : ~Replicates(Decide27(n, hs, {}, {}))
-k\* a check "replicates" when it hands the replicator a task with at least one candidate node. (With overlapping
-\* rules the code as found keeps calling the replicator with an EMPTY candidate list: a holder remembered from
-\* an earlier rule does not lower the shortage of a later rule - a phantom shortage that copies nothing.)
-Replicates(d) == \E k \in 1..Len(d.tasks) : Len(d.tasks[k].nodes) > 0
-Quiet(hs) == \A n \in hs : LET d == Decide27(n, hs, {}, {}) IN ~Replicates(d) /\ d.del = "none"
-NoTasks(hs) == \A n \in hs : ~Replicates(Decide27(n, hs, {}, {}))
-)\* a check "replicates" when it hands the replicator a task with at least one candidate node. (With overlapping
-\* rules the code as found keeps calling the replicator with an EMPTY candidate list: a holder remembered from
-\* an earlier rule does not lower the shortage of a later rule - a phantom shortage that copies nothing.)
-Replicates(d) == \E k \in 1..Len(d.tasks) : Len(d.tasks[k].nodes) > 0
-Quiet(hs) == \A n \in hs : LET d == Decide27(n, hs, {}, {}) IN ~Replicates(d) /\ d.del = "none"
-NoTasks(hs) == \A n \in hs : ~Replicates(Decide27(n, hs, {}, {}))
- \* a check "replicates" when it hands the replicator a task with at least one candidate node. (With overlapping
-\* rules the code as found keeps calling the replicator with an EMPTY candidate list: a holder remembered from
-\* an earlier rule does not lower the shortage of a later rule - a phantom shortage that copies nothing.)
-Replicates(d) == \E k \in 1..Len(d.tasks) : Len(d.tasks[k].nodes) > 0
-Quiet(hs) == \A n \in hs : LET d == Decide27(n, hs, {}, {}) IN ~Replicates(d) /\ d.del = "none"
-NoTasks(hs) == \A n \in hs : ~Replicates(Decide27(n, hs, {}, {}))
-\\* a check "replicates" when it hands the replicator a task with at least one candidate node. (With overlapping
-\* rules the code as found keeps calling the replicator with an EMPTY candidate list: a holder remembered from
-\* an earlier rule does not lower the shortage of a later rule - a phantom shortage that copies nothing.)
-Replicates(d) == \E k \in 1..Len(d.tasks) : Len(d.tasks[k].nodes) > 0
-Quiet(hs) == \A n \in hs : LET d == Decide27(n, hs, {}, {}) IN ~Replicates(d) /\ d.del = "none"
-NoTasks(hs) == \A n \in hs : ~Replicates(Decide27(n, hs, {}, {}))
-s\* a check "replicates" when it hands the replicator a task with at least one candidate node. (With overlapping
-\* rules the code as found keeps calling the replicator with an EMPTY candidate list: a holder remembered from
-\* an earlier rule does not lower the shortage of a later rule - a phantom shortage that copies nothing.)
-Replicates(d) == \E k \in 1..Len(d.tasks) : Len(d.tasks[k].nodes) > 0
-Quiet(hs) == \A n \in hs : LET d == Decide27(n, hs, {}, {}) IN ~Replicates(d) /\ d.del = "none"
-NoTasks(hs) == \A n \in hs : ~Replicates(Decide27(n, hs, {}, {}))
-u\* a check "replicates" when it hands the replicator a task with at least one candidate node. (With overlapping
-\* rules the code as found keeps calling the replicator with an EMPTY candidate list: a holder remembered from
-\* an earlier rule does not lower the shortage of a later rule - a phantom shortage that copies nothing.)
-Replicates(d) == \E k \in 1..Len(d.tasks) : Len(d.tasks[k].nodes) > 0
-Quiet(hs) == \A n \in hs : LET d == Decide27(n, hs, {}, {}) IN ~Replicates(d) /\ d.del = "none"
-NoTasks(hs) == \A n \in hs : ~Replicates(Decide27(n, hs, {}, {}))
-b\* a check "replicates" when it hands the replicator a task with at least one candidate node. (With overlapping
-\* rules the code as found keeps calling the replicator with an EMPTY candidate list: a holder remembered from
-\* an earlier rule does not lower the shortage of a later rule - a phantom shortage that copies nothing.)
-Replicates(d) == \E k \in 1..Len(d.tasks) : Len(d.tasks[k].nodes) > 0
-Quiet(hs) == \A n \in hs : LET d == Decide27(n, hs, {}, {}) IN ~Replicates(d) /\ d.del = "none"
-NoTasks(hs) == \A n \in hs : ~Replicates(Decide27(n, hs, {}, {}))
-s\* a check "replicates" when it hands the replicator a task with at least one candidate node. (With overlapping
-\* rules the code as found keeps calling the replicator with an EMPTY candidate list: a holder remembered from
-\* an earlier rule does not lower the shortage of a later rule - a phantom shortage that copies nothing.)
-Replicates(d) == \E k \in 1..Len(d.tasks) : Len(d.tasks[k].nodes) > 0
-Quiet(hs) == \A n \in hs : LET d == Decide27(n, hs, {}, {}) IN ~Replicates(d) /\ d.del = "none"
-NoTasks(hs) == \A n \in hs : ~Replicates(Decide27(n, hs, {}, {}))
-e\* a check "replicates" when it hands the replicator a task with at least one candidate node. (With overlapping
-\* rules the code as found keeps calling the replicator with an EMPTY candidate list: a holder remembered from
-\* an earlier rule does not lower the shortage of a later rule - a phantom shortage that copies nothing.)
-Replicates(d) == \E k \in 1..Len(d.tasks) : Len(d.tasks[k].nodes) > 0
-Quiet(hs) == \A n \in hs : LET d == Decide27(n, hs, {}, {}) IN ~Replicates(d) /\ d.del = "none"
-NoTasks(hs) == \A n \in hs : ~Replicates(Decide27(n, hs, {}, {}))
-t\* a check "replicates" when it hands the replicator a task with at least one candidate node. (With overlapping
-\* rules the code as found keeps calling the replicator with an EMPTY candidate list: a holder remembered from
-\* an earlier rule does not lower the shortage of a later rule - a phantom shortage that copies nothing.)
-Replicates(d) == \E k \in 1..Len(d.tasks) : Len(d.tasks[k].nodes) > 0
-Quiet(hs) == \A n \in hs : LET d == Decide27(n, hs, {}, {}) IN ~Replicates(d) /\ d.del = "none"
-NoTasks(hs) == \A n \in hs : ~Replicates(Decide27(n, hs, {}, {}))
-e\* a check "replicates" when it hands the replicator a task with at least one candidate node. (With overlapping
-\* rules the code as found keeps calling the replicator with an EMPTY candidate list: a holder remembered from
-\* an earlier rule does not lower the shortage of a later rule - a phantom shortage that copies nothing.)
-Replicates(d) == \E k \in 1..Len(d.tasks) : Len(d.tasks[k].nodes) > 0
-Quiet(hs) == \A n \in hs : LET d == Decide27(n, hs, {}, {}) IN ~Replicates(d) /\ d.del = "none"
-NoTasks(hs) == \A n \in hs : ~Replicates(Decide27(n, hs, {}, {}))
-q\* a check "replicates" when it hands the replicator a task with at least one candidate node. (With overlapping
-\* rules the code as found keeps calling the replicator with an EMPTY candidate list: a holder remembered from
-\* an earlier rule does not lower the shortage of a later rule - a phantom shortage that copies nothing.)
-Replicates(d) == \E k \in 1..Len(d.tasks) : Len(d.tasks[k].nodes) > 0
-Quiet(hs) == \A n \in hs : LET d == Decide27(n, hs, {}, {}) IN ~Replicates(d) /\ d.del = "none"
-NoTasks(hs) == \A n \in hs : ~Replicates(Decide27(n, hs, {}, {}))
- \* a check "replicates" when it hands the replicator a task with at least one candidate node. (With overlapping
-\* rules the code as found keeps calling the replicator with an EMPTY candidate list: a holder remembered from
-\* an earlier rule does not lower the shortage of a later rule - a phantom shortage that copies nothing.)
-Replicates(d) == \E k \in 1..Len(d.tasks) : Len(d.tasks[k].nodes) > 0
-Quiet(hs) == \A n \in hs : LET d == Decide27(n, hs, {}, {}) IN ~Replicates(d) /\ d.del = "none"
-NoTasks(hs) == \A n \in hs : ~Replicates(Decide27(n, hs, {}, {}))
-l\* a check "replicates" when it hands the replicator a task with at least one candidate node. (With overlapping
-\* rules the code as found keeps calling the replicator with an EMPTY candidate list: a holder remembered from
-\* an earlier rule does not lower the shortage of a later rule - a phantom shortage that copies nothing.)
-Replicates(d) == \E k \in 1..Len(d.tasks) : Len(d.tasks[k].nodes) > 0
-Quiet(hs) == \A n \in hs : LET d == Decide27(n, hs, {}, {}) IN ~Replicates(d) /\ d.del = "none"
-NoTasks(hs) == \A n \in hs : ~Replicates(Decide27(n, hs, {}, {}))
-a\* a check "replicates" when it hands the replicator a task with at least one candidate node. (With overlapping
-\* rules the code as found keeps calling the replicator with an EMPTY candidate list: a holder remembered from
-\* an earlier rule does not lower the shortage of a later rule - a phantom shortage that copies nothing.)
-Replicates(d) == \E k \in 1..Len(d.tasks) : Len(d.tasks[k].nodes) > 0
-Quiet(hs) == \A n \in hs : LET d == Decide27(n, hs, {}, {}) IN ~Replicates(d) /\ d.del = "none"
-NoTasks(hs) == \A n \in hs : ~Replicates(Decide27(n, hs, {}, {}))
-s\* a check "replicates" when it hands the replicator a task with at least one candidate node. (With overlapping
-\* rules the code as found keeps calling the replicator with an EMPTY candidate list: a holder remembered from
-\* an earlier rule does not lower the shortage of a later rule - a phantom shortage that copies nothing.)
-Replicates(d) == \E k \in 1..Len(d.tasks) : Len(d.tasks[k].nodes) > 0
-Quiet(hs) == \A n \in hs : LET d == Decide27(n, hs, {}, {}) IN ~Replicates(d) /\ d.del = "none"
-NoTasks(hs) == \A n \in hs : ~Replicates(Decide27(n, hs, {}, {}))
-t\* a check "replicates" when it hands the replicator a task with at least one candidate node. (With overlapping
-\* rules the code as found keeps calling the replicator with an EMPTY candidate list: a holder remembered from
-\* an earlier rule does not lower the shortage of a later rule - a phantom shortage that copies nothing.)
-Replicates(d) == \E k \in 1..Len(d.tasks) : Len(d.tasks[k].nodes) > 0
-Quiet(hs) == \A n \in hs : LET d == Decide27(n, hs, {}, {}) IN ~Replicates(d) /\ d.del = "none"
-NoTasks(hs) == \A n \in hs : ~Replicates(Decide27(n, hs, {}, {}))
-.\* a check "replicates" when it hands the replicator a task with at least one candidate node. (With overlapping
-\* rules the code as found keeps calling the replicator with an EMPTY candidate list: a holder remembered from
-\* an earlier rule does not lower the shortage of a later rule - a phantom shortage that copies nothing.)
-Replicates(d) == \E k \in 1..Len(d.tasks) : Len(d.tasks[k].nodes) > 0
-Quiet(hs) == \A n \in hs : LET d == Decide27(n, hs, {}, {}) IN ~Replicates(d) /\ d.del = "none"
-NoTasks(hs) == \A n \in hs : ~Replicates(Decide27(n, hs, {}, {}))
-s\* a check "replicates" when it hands the replicator a task with at least one candidate node. (With overlapping
-\* rules the code as found keeps calling the replicator with an EMPTY candidate list: a holder remembered from
-\* an earlier rule does not lower the shortage of a later rule - a phantom shortage that copies nothing.)
-Replicates(d) == \E k \in 1..Len(d.tasks) : Len(d.tasks[k].nodes) > 0
-Quiet(hs) == \A n \in hs : LET d == Decide27(n, hs, {}, {}) IN ~Replicates(d) /\ d.del = "none"
-NoTasks(hs) == \A n \in hs : ~Replicates(Decide27(n, hs, {}, {}))
-t\* a check "replicates" when it hands the replicator a task with at least one candidate node. (With overlapping
-\* rules the code as found keeps calling the replicator with an EMPTY candidate list: a holder remembered from
-\* an earlier rule does not lower the shortage of a later rule - a phantom shortage that copies nothing.)
-Replicates(d) == \E k \in 1..Len(d.tasks) : Len(d.tasks[k].nodes) > 0
-Quiet(hs) == \A n \in hs : LET d == Decide27(n, hs, {}, {}) IN ~Replicates(d) /\ d.del = "none"
-NoTasks(hs) == \A n \in hs : ~Replicates(Decide27(n, hs, {}, {}))
-o\* a check "replicates" when it hands the replicator a task with at least one candidate node. (With overlapping
-\* rules the code as found keeps calling the replicator with an EMPTY candidate list: a holder remembered from
-\* an earlier rule does not lower the shortage of a later rule - a phantom shortage that copies nothing.)
-Replicates(d) == \E k \in 1..Len(d.tasks) : Len(d.tasks[k].nodes) > 0
-Quiet(hs) == \A n \in hs : LET d == Decide27(n, hs, {}, {}) IN ~Replicates(d) /\ d.del = "none"
-NoTasks(hs) == \A n \in hs : ~Replicates(Decide27(n, hs, {}, {}))
-r\* a check "replicates" when it hands the replicator a task with at least one candidate node. (With overlapping
-\* rules the code as found keeps calling the replicator with an EMPTY candidate list: a holder remembered from
-\* an earlier rule does not lower the shortage of a later rule - a phantom shortage that copies nothing.)
-Replicates(d) == \E k \in 1..Len(d.tasks) : Len(d.tasks[k].nodes) > 0
-Quiet(hs) == \A n \in hs : LET d == Decide27(n, hs, {}, {}) IN ~Replicates(d) /\ d.del = "none"
-NoTasks(hs) == \A n \in hs : ~Replicates(Decide27(n, hs, {}, {}))
-e\* a check "replicates" when it hands the replicator a task with at least one candidate node. (With overlapping
-\* rules the code as found keeps calling the replicator with an EMPTY candidate list: a holder remembered from
-\* an earlier rule does not lower the shortage of a later rule - a phantom shortage that copies nothing.)
-Replicates(d) == \E k \in 1..Len(d.tasks) : Len(d.tasks[k].nodes) > 0
-Quiet(hs) == \A n \in hs : LET d == Decide27(n, hs, {}, {}) IN ~Replicates(d) /\ d.del = "none"
-NoTasks(hs) == \A n \in hs : ~Replicates(Decide27(n, hs, {}, {}))
-d\* a check "replicates" when it hands the replicator a task with at least one candidate node. (With overlapping
-\* rules the code as found keeps calling the replicator with an EMPTY candidate list: a holder remembered from
-\* an earlier rule does not lower the shortage of a later rule - a phantom shortage that copies nothing.)
-Replicates(d) == \E k \in 1..Len(d.tasks) : Len(d.tasks[k].nodes) > 0
-Quiet(hs) == \A n \in hs : LET d == Decide27(n, hs, {}, {}) IN ~Replicates(d) /\ d.del = "none"
-NoTasks(hs) == \A n \in hs : ~Replicates(Decide27(n, hs, {}, {}))
-
-\* a check "replicates" when it hands the replicator a task with at least one candidate node. (With overlapping
-\* rules the code as found keeps calling the replicator with an EMPTY candidate list: a holder remembered from
-\* an earlier rule does not lower the shortage of a later rule - a phantom shortage that copies nothing.)
-Replicates(d) == \E k \in 1..Len(d.tasks) : Len(d.tasks[k].nodes) > 0
-Quiet(hs) == \A n \in hs : LET d == Decide27(n, hs, {}, {}) IN ~Replicates(d) /\ d.del = "none"
-NoTasks(hs) == \A n \in hs : ~Replicates(Decide27(n, hs, {}, {}))
-=\* a check "replicates" when it hands the replicator a task with at least one candidate node. (With overlapping
-\* rules the code as found keeps calling the replicator with an EMPTY candidate list: a holder remembered from
-\* an earlier rule does not lower the shortage of a later rule - a phantom shortage that copies nothing.)
-Replicates(d) == \E k \in 1..Len(d.tasks) : Len(d.tasks[k].nodes) > 0
-Quiet(hs) == \A n \in hs : LET d == Decide27(n, hs, {}, {}) IN ~Replicates(d) /\ d.del = "none"
-NoTasks(hs) == \A n \in hs : ~Replicates(Decide27(n, hs, {}, {}))
-=\* a check "replicates" when it hands the replicator a task with at least one candidate node. (With overlapping
-\* rules the code as found keeps calling the replicator with an EMPTY candidate list: a holder remembered from
-\* an earlier rule does not lower the shortage of a later rule - a phantom shortage that copies nothing.)
-Replicates(d) == \E k \in 1..Len(d.tasks) : Len(d.tasks[k].nodes) > 0
-Quiet(hs) == \A n \in hs : LET d == Decide27(n, hs, {}, {}) IN ~Replicates(d) /\ d.del = "none"
-NoTasks(hs) == \A n \in hs : ~Replicates(Decide27(n, hs, {}, {}))
-=\* a check "replicates" when it hands the replicator a task with at least one candidate node. (With overlapping
-\* rules the code as found keeps calling the replicator with an EMPTY candidate list: a holder remembered from
-\* an earlier rule does not lower the shortage of a later rule - a phantom shortage that copies nothing.)
-Replicates(d) == \E k \in 1..Len(d.tasks) : Len(d.tasks[k].nodes) > 0
-Quiet(hs) == \A n \in hs : LET d == Decide27(n, hs, {}, {}) IN ~Replicates(d) /\ d.del = "none"
-NoTasks(hs) == \A n \in hs : ~Replicates(Decide27(n, hs, {}, {}))
-=\* a check "replicates" when it hands the replicator a task with at least one candidate node. (With overlapping
-\* rules the code as found keeps calling the replicator with an EMPTY candidate list: a holder remembered from
-\* an earlier rule does not lower the shortage of a later rule - a phantom shortage that copies nothing.)
-Replicates(d) == \E k \in 1..Len(d.tasks) : Len(d.tasks[k].nodes) > 0
-Quiet(hs) == \A n \in hs : LET d == Decide27(n, hs, {}, {}) IN ~Replicates(d) /\ d.del = "none"
-NoTasks(hs) == \A n \in hs : ~Replicates(Decide27(n, hs, {}, {}))
-=\* a check "replicates" when it hands the replicator a task with at least one candidate node. (With overlapping
-\* rules the code as found keeps calling the replicator with an EMPTY candidate list: a holder remembered from
-\* an earlier rule does not lower the shortage of a later rule - a phantom shortage that copies nothing.)
-Replicates(d) == \E k \in 1..Len(d.tasks) : Len(d.tasks[k].nodes) > 0
-Quiet(hs) == \A n \in hs : LET d == Decide27(n, hs, {}, {}) IN ~Replicates(d) /\ d.del = "none"
-NoTasks(hs) == \A n \in hs : ~Replicates(Decide27(n, hs, {}, {}))
-=\* a check "replicates" when it hands the replicator a task with at least one candidate node. (With overlapping
-\* rules the code as found keeps calling the replicator with an EMPTY candidate list: a holder remembered from
-\* an earlier rule does not lower the shortage of a later rule - a phantom shortage that copies nothing.)
-Replicates(d) == \E k \in 1..Len(d.tasks) : Len(d.tasks[k].nodes) > 0
-Quiet(hs) == \A n \in hs : LET d == Decide27(n, hs, {}, {}) IN ~Replicates(d) /\ d.del = "none"
-NoTasks(hs) == \A n \in hs : ~Replicates(Decide27(n, hs, {}, {}))
-=\* a check "replicates" when it hands the replicator a task with at least one candidate node. (With overlapping
-\* rules the code as found keeps calling the replicator with an EMPTY candidate list: a holder remembered from
-\* an earlier rule does not lower the shortage of a later rule - a phantom shortage that copies nothing.)
-Replicates(d) == \E k \in 1..Len(d.tasks) : Len(d.tasks[k].nodes) > 0
-Quiet(hs) == \A n \in hs : LET d == Decide27(n, hs, {}, {}) IN ~Replicates(d) /\ d.del = "none"
-NoTasks(hs) == \A n \in hs : ~Replicates(Decide27(n, hs, {}, {}))
-=\* a check "replicates" when it hands the replicator a task with at least one candidate node. (With overlapping
-\* rules the code as found keeps calling the replicator with an EMPTY candidate list: a holder remembered from
-\* an earlier rule does not lower the shortage of a later rule - a phantom shortage that copies nothing.)
-Replicates(d) == \E k \in 1..Len(d.tasks) : Len(d.tasks[k].nodes) > 0
-Quiet(hs) == \A n \in hs : LET d == Decide27(n, hs, {}, {}) IN ~Replicates(d) /\ d.del = "none"
-NoTasks(hs) == \A n \in hs : ~Replicates(Decide27(n, hs, {}, {}))
-=\* a check "replicates" when it hands the replicator a task with at least one candidate node. (With overlapping
-\* rules the code as found keeps calling the replicator with an EMPTY candidate list: a holder remembered from
-\* an earlier rule does not lower the shortage of a later rule - a phantom shortage that copies nothing.)
-Replicates(d) == \E k \in 1..Len(d.tasks) : Len(d.tasks[k].nodes) > 0
-Quiet(hs) == \A n \in hs : LET d == Decide27(n, hs, {}, {}) IN ~Replicates(d) /\ d.del = "none"
-NoTasks(hs) == \A n \in hs : ~Replicates(Decide27(n, hs, {}, {}))
-=\* a check "replicates" when it hands the replicator a task with at least one candidate node. (With overlapping
-\* rules the code as found keeps calling the replicator with an EMPTY candidate list: a holder remembered from
-\* an earlier rule does not lower the shortage of a later rule - a phantom shortage that copies nothing.)
-Replicates(d) == \E k \in 1..Len(d.tasks) : Len(d.tasks[k].nodes) > 0
-Quiet(hs) == \A n \in hs : LET d == Decide27(n, hs, {}, {}) IN ~Replicates(d) /\ d.del = "none"
-NoTasks(hs) == \A n \in hs : ~Replicates(Decide27(n, hs, {}, {}))
-=\* a check "replicates" when it hands the replicator a task with at least one candidate node. (With overlapping
-\* rules the code as found keeps calling the replicator with an EMPTY candidate list: a holder remembered from
-\* an earlier rule does not lower the shortage of a later rule - a phantom shortage that copies nothing.)
-Replicates(d) == \E k \in 1..Len(d.tasks) : Len(d.tasks[k].nodes) > 0
-Quiet(hs) == \A n \in hs : LET d == Decide27(n, hs, {}, {}) IN ~Replicates(d) /\ d.del = "none"
-NoTasks(hs) == \A n \in hs : ~Replicates(Decide27(n, hs, {}, {}))
-=\* a check "replicates" when it hands the replicator a task with at least one candidate node. (With overlapping
-\* rules the code as found keeps calling the replicator with an EMPTY candidate list: a holder remembered from
-\* an earlier rule does not lower the shortage of a later rule - a phantom shortage that copies nothing.)
-Replicates(d) == \E k \in 1..Len(d.tasks) : Len(d.tasks[k].nodes) > 0
-Quiet(hs) == \A n \in hs : LET d == Decide27(n, hs, {}, {}) IN ~Replicates(d) /\ d.del = "none"
-NoTasks(hs) == \A n \in hs : ~Replicates(Decide27(n, hs, {}, {}))
-=\* a check "replicates" when it hands the replicator a task with at least one candidate node. (With overlapping
-\* rules the code as found keeps calling the replicator with an EMPTY candidate list: a holder remembered from
-\* an earlier rule does not lower the shortage of a later rule - a phantom shortage that copies nothing.)
-Replicates(d) == \E k \in 1..Len(d.tasks) : Len(d.tasks[k].nodes) > 0
-Quiet(hs) == \A n \in hs : LET d == Decide27(n, hs, {}, {}) IN ~Replicates(d) /\ d.del = "none"
-NoTasks(hs) == \A n \in hs : ~Replicates(Decide27(n, hs, {}, {}))
-=\* a check "replicates" when it hands the replicator a task with at least one candidate node. (With overlapping
-\* rules the code as found keeps calling the replicator with an EMPTY candidate list: a holder remembered from
-\* an earlier rule does not lower the shortage of a later rule - a phantom shortage that copies nothing.)
-Replicates(d) == \E k \in 1..Len(d.tasks) : Len(d.tasks[k].nodes) > 0
-Quiet(hs) == \A n \in hs : LET d == Decide27(n, hs, {}, {}) IN ~Replicates(d) /\ d.del = "none"
-NoTasks(hs) == \A n \in hs : ~Replicates(Decide27(n, hs, {}, {}))
-=\* a check "replicates" when it hands the replicator a task with at least one candidate node. (With overlapping
-\* rules the code as found keeps calling the replicator with an EMPTY candidate list: a holder remembered from
-\* an earlier rule does not lower the shortage of a later rule - a phantom shortage that copies nothing.)
-Replicates(d) == \E k \in 1..Len(d.tasks) : Len(d.tasks[k].nodes) > 0
-Quiet(hs) == \A n \in hs : LET d == Decide27(n, hs, {}, {}) IN ~Replicates(d) /\ d.del = "none"
-NoTasks(hs) == \A n \in hs : ~Replicates(Decide27(n, hs, {}, {}))
-=\* a check "replicates" when it hands the replicator a task with at least one candidate node. (With overlapping
-\* rules the code as found keeps calling the replicator with an EMPTY candidate list: a holder remembered from
-\* an earlier rule does not lower the shortage of a later rule - a phantom shortage that copies nothing.)
-Replicates(d) == \E k \in 1..Len(d.tasks) : Len(d.tasks[k].nodes) > 0
-Quiet(hs) == \A n \in hs : LET d == Decide27(n, hs, {}, {}) IN ~Replicates(d) /\ d.del = "none"
-NoTasks(hs) == \A n \in hs : ~Replicates(Decide27(n, hs, {}, {}))
-=\* a check "replicates" when it hands the replicator a task with at least one candidate node. (With overlapping
-\* rules the code as found keeps calling the replicator with an EMPTY candidate list: a holder remembered from
-\* an earlier rule does not lower the shortage of a later rule - a phantom shortage that copies nothing.)
-Replicates(d) == \E k \in 1..Len(d.tasks) : Len(d.tasks[k].nodes) > 0
-Quiet(hs) == \A n \in hs : LET d == Decide27(n, hs, {}, {}) IN ~Replicates(d) /\ d.del = "none"
-NoTasks(hs) == \A n \in hs : ~Replicates(Decide27(n, hs, {}, {}))
-=\* a check "replicates" when it hands the replicator a task with at least one candidate node. (With overlapping
-\* rules the code as found keeps calling the replicator with an EMPTY candidate list: a holder remembered from
-\* an earlier rule does not lower the shortage of a later rule - a phantom shortage that copies nothing.)
-Replicates(d) == \E k \in 1..Len(d.tasks) : Len(d.tasks[k].nodes) > 0
-Quiet(hs) == \A n \in hs : LET d == Decide27(n, hs, {}, {}) IN ~Replicates(d) /\ d.del = "none"
-NoTasks(hs) == \A n \in hs : ~Replicates(Decide27(n, hs, {}, {}))
-=\* a check "replicates" when it hands the replicator a task with at least one candidate node. (With overlapping
-\* rules the code as found keeps calling the replicator with an EMPTY candidate list: a holder remembered from
-\* an earlier rule does not lower the shortage of a later rule - a phantom shortage that copies nothing.)
-Replicates(d) == \E k \in 1..Len(d.tasks) : Len(d.tasks[k].nodes) > 0
-Quiet(hs) == \A n \in hs : LET d == Decide27(n, hs, {}, {}) IN ~Replicates(d) /\ d.del = "none"
-NoTasks(hs) == \A n \in hs : ~Replicates(Decide27(n, hs, {}, {}))
-=\* a check "replicates" when it hands the replicator a task with at least one candidate node. (With overlapping
-\* rules the code as found keeps calling the replicator with an EMPTY candidate list: a holder remembered from
-\* an earlier rule does not lower the shortage of a later rule - a phantom shortage that copies nothing.)
-Replicates(d) == \E k \in 1..Len(d.tasks) : Len(d.tasks[k].nodes) > 0
-Quiet(hs) == \A n \in hs : LET d == Decide27(n, hs, {}, {}) IN ~Replicates(d) /\ d.del = "none"
-NoTasks(hs) == \A n \in hs : ~Replicates(Decide27(n, hs, {}, {}))
-=\* a check "replicates" when it hands the replicator a task with at least one candidate node. (With overlapping
-\* rules the code as found keeps calling the replicator with an EMPTY candidate list: a holder remembered from
-\* an earlier rule does not lower the shortage of a later rule - a phantom shortage that copies nothing.)
-Replicates(d) == \E k \in 1..Len(d.tasks) : Len(d.tasks[k].nodes) > 0
-Quiet(hs) == \A n \in hs : LET d == Decide27(n, hs, {}, {}) IN ~Replicates(d) /\ d.del = "none"
-NoTasks(hs) == \A n \in hs : ~Replicates(Decide27(n, hs, {}, {}))
-=\* a check "replicates" when it hands the replicator a task with at least one candidate node. (With overlapping
-\* rules the code as found keeps calling the replicator with an EMPTY candidate list: a holder remembered from
-\* an earlier rule does not lower the shortage of a later rule - a phantom shortage that copies nothing.)
-Replicates(d) == \E k \in 1..Len(d.tasks) : Len(d.tasks[k].nodes) > 0
-Quiet(hs) == \A n \in hs : LET d == Decide27(n, hs, {}, {}) IN ~Replicates(d) /\ d.del = "none"
-NoTasks(hs) == \A n \in hs : ~Replicates(Decide27(n, hs, {}, {}))
-=\* a check "replicates" when it hands the replicator a task with at least one candidate node. (With overlapping
-\* rules the code as found keeps calling the replicator with an EMPTY candidate list: a holder remembered from
-\* an earlier rule does not lower the shortage of a later rule - a phantom shortage that copies nothing.)
-Replicates(d) == \E k \in 1..Len(d.tasks) : Len(d.tasks[k].nodes) > 0
-Quiet(hs) == \A n \in hs : LET d == Decide27(n, hs, {}, {}) IN ~Replicates(d) /\ d.del = "none"
-NoTasks(hs) == \A n \in hs : ~Replicates(Decide27(n, hs, {}, {}))
-=\* a check "replicates" when it hands the replicator a task with at least one candidate node. (With overlapping
-\* rules the code as found keeps calling the replicator with an EMPTY candidate list: a holder remembered from
-\* an earlier rule does not lower the shortage of a later rule - a phantom shortage that copies nothing.)
-Replicates(d) == \E k \in 1..Len(d.tasks) : Len(d.tasks[k].nodes) > 0
-Quiet(hs) == \A n \in hs : LET d == Decide27(n, hs, {}, {}) IN ~Replicates(d) /\ d.del = "none"
-NoTasks(hs) == \A n \in hs : ~Replicates(Decide27(n, hs, {}, {}))
-=\* a check "replicates" when it hands the replicator a task with at least one candidate node. (With overlapping
-\* rules the code as found keeps calling the replicator with an EMPTY candidate list: a holder remembered from
-\* an earlier rule does not lower the shortage of a later rule - a phantom shortage that copies nothing.)
-Replicates(d) == \E k \in 1..Len(d.tasks) : Len(d.tasks[k].nodes) > 0
-Quiet(hs) == \A n \in hs : LET d == Decide27(n, hs, {}, {}) IN ~Replicates(d) /\ d.del = "none"
-NoTasks(hs) == \A n \in hs : ~Replicates(Decide27(n, hs, {}, {}))
-=\* a check "replicates" when it hands the replicator a task with at least one candidate node. (With overlapping
-\* rules the code as found keeps calling the replicator with an EMPTY candidate list: a holder remembered from
-\* an earlier rule does not lower the shortage of a later rule - a phantom shortage that copies nothing.)
-Replicates(d) == \E k \in 1..Len(d.tasks) : Len(d.tasks[k].nodes) > 0
-Quiet(hs) == \A n \in hs : LET d == Decide27(n, hs, {}, {}) IN ~Replicates(d) /\ d.del = "none"
-NoTasks(hs) == \A n \in hs : ~Replicates(Decide27(n, hs, {}, {}))
-=\* a check "replicates" when it hands the replicator a task with at least one candidate node. (With overlapping
-\* rules the code as found keeps calling the replicator with an EMPTY candidate list: a holder remembered from
-\* an earlier rule does not lower the shortage of a later rule - a phantom shortage that copies nothing.)
-Replicates(d) == \E k \in 1..Len(d.tasks) : Len(d.tasks[k].nodes) > 0
-Quiet(hs) == \A n \in hs : LET d == Decide27(n, hs, {}, {}) IN ~Replicates(d) /\ d.del = "none"
-NoTasks(hs) == \A n \in hs : ~Replicates(Decide27(n, hs, {}, {}))
-=\* a check "replicates" when it hands the replicator a task with at least one candidate node. (With overlapping
-\* rules the code as found keeps calling the replicator with an EMPTY candidate list: a holder remembered from
-\* an earlier rule does not lower the shortage of a later rule - a phantom shortage that copies nothing.)
-Replicates(d) == \E k \in 1..Len(d.tasks) : Len(d.tasks[k].nodes) > 0
-Quiet(hs) == \A n \in hs : LET d == Decide27(n, hs, {}, {}) IN ~Replicates(d) /\ d.del = "none"
-NoTasks(hs) == \A n \in hs : ~Replicates(Decide27(n, hs, {}, {}))
-=\* a check "replicates" when it hands the replicator a task with at least one candidate node. (With overlapping
-\* rules the code as found keeps calling the replicator with an EMPTY candidate list: a holder remembered from
-\* an earlier rule does not lower the shortage of a later rule - a phantom shortage that copies nothing.)
-Replicates(d) == \E k \in 1..Len(d.tasks) : Len(d.tasks[k].nodes) > 0
-Quiet(hs) == \A n \in hs : LET d == Decide27(n, hs, {}, {}) IN ~Replicates(d) /\ d.del = "none"
-NoTasks(hs) == \A n \in hs : ~Replicates(Decide27(n, hs, {}, {}))
-=\* a check "replicates" when it hands the replicator a task with at least one candidate node. (With overlapping
-\* rules the code as found keeps calling the replicator with an EMPTY candidate list: a holder remembered from
-\* an earlier rule does not lower the shortage of a later rule - a phantom shortage that copies nothing.)
-Replicates(d) == \E k \in 1..Len(d.tasks) : Len(d.tasks[k].nodes) > 0
-Quiet(hs) == \A n \in hs : LET d == Decide27(n, hs, {}, {}) IN ~Replicates(d) /\ d.del = "none"
-NoTasks(hs) == \A n \in hs : ~Replicates(Decide27(n, hs, {}, {}))
-=\* a check "replicates" when it hands the replicator a task with at least one candidate node. (With overlapping
-\* rules the code as found keeps calling the replicator with an EMPTY candidate list: a holder remembered from
-\* an earlier rule does not lower the shortage of a later rule - a phantom shortage that copies nothing.)
-Replicates(d) == \E k \in 1..Len(d.tasks) : Len(d.tasks[k].nodes) > 0
-Quiet(hs) == \A n \in hs : LET d == Decide27(n, hs, {}, {}) IN ~Replicates(d) /\ d.del = "none"
-NoTasks(hs) == \A n \in hs : ~Replicates(Decide27(n, hs, {}, {}))
-=\* a check "replicates" when it hands the replicator a task with at least one candidate node. (With overlapping
-\* rules the code as found keeps calling the replicator with an EMPTY candidate list: a holder remembered from
-\* an earlier rule does not lower the shortage of a later rule - a phantom shortage that copies nothing.)
-Replicates(d) == \E k \in 1..Len(d.tasks) : Len(d.tasks[k].nodes) > 0
-Quiet(hs) == \A n \in hs : LET d == Decide27(n, hs, {}, {}) IN ~Replicates(d) /\ d.del = "none"
-NoTasks(hs) == \A n \in hs : ~Replicates(Decide27(n, hs, {}, {}))
-=\* a check "replicates" when it hands the replicator a task with at least one candidate node. (With overlapping
-\* rules the code as found keeps calling the replicator with an EMPTY candidate list: a holder remembered from
-\* an earlier rule does not lower the shortage of a later rule - a phantom shortage that copies nothing.)
-Replicates(d) == \E k \in 1..Len(d.tasks) : Len(d.tasks[k].nodes) > 0
-Quiet(hs) == \A n \in hs : LET d == Decide27(n, hs, {}, {}) IN ~Replicates(d) /\ d.del = "none"
-NoTasks(hs) == \A n \in hs : ~Replicates(Decide27(n, hs, {}, {}))
-=\* a check "replicates" when it hands the replicator a task with at least one candidate node. (With overlapping
-\* rules the code as found keeps calling the replicator with an EMPTY candidate list: a holder remembered from
-\* an earlier rule does not lower the shortage of a later rule - a phantom shortage that copies nothing.)
-Replicates(d) == \E k \in 1..Len(d.tasks) : Len(d.tasks[k].nodes) > 0
-Quiet(hs) == \A n \in hs : LET d == Decide27(n, hs, {}, {}) IN ~Replicates(d) /\ d.del = "none"
-NoTasks(hs) == \A n \in hs : ~Replicates(Decide27(n, hs, {}, {}))
-=\* a check "replicates" when it hands the replicator a task with at least one candidate node. (With overlapping
-\* rules the code as found keeps calling the replicator with an EMPTY candidate list: a holder remembered from
-\* an earlier rule does not lower the shortage of a later rule - a phantom shortage that copies nothing.)
-Replicates(d) == \E k \in 1..Len(d.tasks) : Len(d.tasks[k].nodes) > 0
-Quiet(hs) == \A n \in hs : LET d == Decide27(n, hs, {}, {}) IN ~Replicates(d) /\ d.del = "none"
-NoTasks(hs) == \A n \in hs : ~Replicates(Decide27(n, hs, {}, {}))
-=\* a check "replicates" when it hands the replicator a task with at least one candidate node. (With overlapping
-\* rules the code as found keeps calling the replicator with an EMPTY candidate list: a holder remembered from
-\* an earlier rule does not lower the shortage of a later rule - a phantom shortage that copies nothing.)
-Replicates(d) == \E k \in 1..Len(d.tasks) : Len(d.tasks[k].nodes) > 0
-Quiet(hs) == \A n \in hs : LET d == Decide27(n, hs, {}, {}) IN ~Replicates(d) /\ d.del = "none"
-NoTasks(hs) == \A n \in hs : ~Replicates(Decide27(n, hs, {}, {}))
-=\* a check "replicates" when it hands the replicator a task with at least one candidate node. (With overlapping
-\* rules the code as found keeps calling the replicator with an EMPTY candidate list: a holder remembered from
-\* an earlier rule does not lower the shortage of a later rule - a phantom shortage that copies nothing.)
-Replicates(d) == \E k \in 1..Len(d.tasks) : Len(d.tasks[k].nodes) > 0
-Quiet(hs) == \A n \in hs : LET d == Decide27(n, hs, {}, {}) IN ~Replicates(d) /\ d.del = "none"
-NoTasks(hs) == \A n \in hs : ~Replicates(Decide27(n, hs, {}, {}))
-=\* a check "replicates" when it hands the replicator a task with at least one candidate node. (With overlapping
-\* rules the code as found keeps calling the replicator with an EMPTY candidate list: a holder remembered from
-\* an earlier rule does not lower the shortage of a later rule - a phantom shortage that copies nothing.)
-Replicates(d) == \E k \in 1..Len(d.tasks) : Len(d.tasks[k].nodes) > 0
-Quiet(hs) == \A n \in hs : LET d == Decide27(n, hs, {}, {}) IN ~Replicates(d) /\ d.del = "none"
-NoTasks(hs) == \A n \in hs : ~Replicates(Decide27(n, hs, {}, {}))
-=\* a check "replicates" when it hands the replicator a task with at least one candidate node. (With overlapping
-\* rules the code as found keeps calling the replicator with an EMPTY candidate list: a holder remembered from
-\* an earlier rule does not lower the shortage of a later rule - a phantom shortage that copies nothing.)
-Replicates(d) == \E k \in 1..Len(d.tasks) : Len(d.tasks[k].nodes) > 0
-Quiet(hs) == \A n \in hs : LET d == Decide27(n, hs, {}, {}) IN ~Replicates(d) /\ d.del = "none"
-NoTasks(hs) == \A n \in hs : ~Replicates(Decide27(n, hs, {}, {}))
-=\* a check "replicates" when it hands the replicator a task with at least one candidate node. (With overlapping
-\* rules the code as found keeps calling the replicator with an EMPTY candidate list: a holder remembered from
-\* an earlier rule does not lower the shortage of a later rule - a phantom shortage that copies nothing.)
-Replicates(d) == \E k \in 1..Len(d.tasks) : Len(d.tasks[k].nodes) > 0
-Quiet(hs) == \A n \in hs : LET d == Decide27(n, hs, {}, {}) IN ~Replicates(d) /\ d.del = "none"
-NoTasks(hs) == \A n \in hs : ~Replicates(Decide27(n, hs, {}, {}))
-=\* a check "replicates" when it hands the replicator a task with at least one candidate node. (With overlapping
-\* rules the code as found keeps calling the replicator with an EMPTY candidate list: a holder remembered from
-\* an earlier rule does not lower the shortage of a later rule - a phantom shortage that copies nothing.)
-Replicates(d) == \E k \in 1..Len(d.tasks) : Len(d.tasks[k].nodes) > 0
-Quiet(hs) == \A n \in hs : LET d == Decide27(n, hs, {}, {}) IN ~Replicates(d) /\ d.del = "none"
-NoTasks(hs) == \A n \in hs : ~Replicates(Decide27(n, hs, {}, {}))
-=\* a check "replicates" when it hands the replicator a task with at least one candidate node. (With overlapping
-\* rules the code as found keeps calling the replicator with an EMPTY candidate list: a holder remembered from
-\* an earlier rule does not lower the shortage of a later rule - a phantom shortage that copies nothing.)
-Replicates(d) == \E k \in 1..Len(d.tasks) : Len(d.tasks[k].nodes) > 0
-Quiet(hs) == \A n \in hs : LET d == Decide27(n, hs, {}, {}) IN ~Replicates(d) /\ d.del = "none"
-NoTasks(hs) == \A n \in hs : ~Replicates(Decide27(n, hs, {}, {}))
-=\* a check "replicates" when it hands the replicator a task with at least one candidate node. (With overlapping
-\* rules the code as found keeps calling the replicator with an EMPTY candidate list: a holder remembered from
-\* an earlier rule does not lower the shortage of a later rule - a phantom shortage that copies nothing.)
-Replicates(d) == \E k \in 1..Len(d.tasks) : Len(d.tasks[k].nodes) > 0
-Quiet(hs) == \A n \in hs : LET d == Decide27(n, hs, {}, {}) IN ~Replicates(d) /\ d.del = "none"
-NoTasks(hs) == \A n \in hs : ~Replicates(Decide27(n, hs, {}, {}))
-=\* a check "replicates" when it hands the replicator a task with at least one candidate node. (With overlapping
-\* rules the code as found keeps calling the replicator with an EMPTY candidate list: a holder remembered from
-\* an earlier rule does not lower the shortage of a later rule - a phantom shortage that copies nothing.)
-Replicates(d) == \E k \in 1..Len(d.tasks) : Len(d.tasks[k].nodes) > 0
-Quiet(hs) == \A n \in hs : LET d == Decide27(n, hs, {}, {}) IN ~Replicates(d) /\ d.del = "none"
-NoTasks(hs) == \A n \in hs : ~Replicates(Decide27(n, hs, {}, {}))
-=\* a check "replicates" when it hands the replicator a task with at least one candidate node. (With overlapping
-\* rules the code as found keeps calling the replicator with an EMPTY candidate list: a holder remembered from
-\* an earlier rule does not lower the shortage of a later rule - a phantom shortage that copies nothing.)
-Replicates(d) == \E k \in 1..Len(d.tasks) : Len(d.tasks[k].nodes) > 0
-Quiet(hs) == \A n \in hs : LET d == Decide27(n, hs, {}, {}) IN ~Replicates(d) /\ d.del = "none"
-NoTasks(hs) == \A n \in hs : ~Replicates(Decide27(n, hs, {}, {}))
-=\* a check "replicates" when it hands the replicator a task with at least one candidate node. (With overlapping
-\* rules the code as found keeps calling the replicator with an EMPTY candidate list: a holder remembered from
-\* an earlier rule does not lower the shortage of a later rule - a phantom shortage that copies nothing.)
-Replicates(d) == \E k \in 1..Len(d.tasks) : Len(d.tasks[k].nodes) > 0
-Quiet(hs) == \A n \in hs : LET d == Decide27(n, hs, {}, {}) IN ~Replicates(d) /\ d.del = "none"
-NoTasks(hs) == \A n \in hs : ~Replicates(Decide27(n, hs, {}, {}))
-=\* a check "replicates" when it hands the replicator a task with at least one candidate node. (With overlapping
-\* rules the code as found keeps calling the replicator with an EMPTY candidate list: a holder remembered from
-\* an earlier rule does not lower the shortage of a later rule - a phantom shortage that copies nothing.)
-Replicates(d) == \E k \in 1..Len(d.tasks) : Len(d.tasks[k].nodes) > 0
-Quiet(hs) == \A n \in hs : LET d == Decide27(n, hs, {}, {}) IN ~Replicates(d) /\ d.del = "none"
-NoTasks(hs) == \A n \in hs : ~Replicates(Decide27(n, hs, {}, {}))
-=\* a check "replicates" when it hands the replicator a task with at least one candidate node. (With overlapping
-\* rules the code as found keeps calling the replicator with an EMPTY candidate list: a holder remembered from
-\* an earlier rule does not lower the shortage of a later rule - a phantom shortage that copies nothing.)
-Replicates(d) == \E k \in 1..Len(d.tasks) : Len(d.tasks[k].nodes) > 0
-Quiet(hs) == \A n \in hs : LET d == Decide27(n, hs, {}, {}) IN ~Replicates(d) /\ d.del = "none"
-NoTasks(hs) == \A n \in hs : ~Replicates(Decide27(n, hs, {}, {}))
-=\* a check "replicates" when it hands the replicator a task with at least one candidate node. (With overlapping
-\* rules the code as found keeps calling the replicator with an EMPTY candidate list: a holder remembered from
-\* an earlier rule does not lower the shortage of a later rule - a phantom shortage that copies nothing.)
-Replicates(d) == \E k \in 1..Len(d.tasks) : Len(d.tasks[k].nodes) > 0
-Quiet(hs) == \A n \in hs : LET d == Decide27(n, hs, {}, {}) IN ~Replicates(d) /\ d.del = "none"
-NoTasks(hs) == \A n \in hs : ~Replicates(Decide27(n, hs, {}, {}))
-=\* a check "replicates" when it hands the replicator a task with at least one candidate node. (With overlapping
-\* rules the code as found keeps calling the replicator with an EMPTY candidate list: a holder remembered from
-\* an earlier rule does not lower the shortage of a later rule - a phantom shortage that copies nothing.)
-Replicates(d) == \E k \in 1..Len(d.tasks) : Len(d.tasks[k].nodes) > 0
-Quiet(hs) == \A n \in hs : LET d == Decide27(n, hs, {}, {}) IN ~Replicates(d) /\ d.del = "none"
-NoTasks(hs) == \A n \in hs : ~Replicates(Decide27(n, hs, {}, {}))
-=\* a check "replicates" when it hands the replicator a task with at least one candidate node. (With overlapping
-\* rules the code as found keeps calling the replicator with an EMPTY candidate list: a holder remembered from
-\* an earlier rule does not lower the shortage of a later rule - a phantom shortage that copies nothing.)
-Replicates(d) == \E k \in 1..Len(d.tasks) : Len(d.tasks[k].nodes) > 0
-Quiet(hs) == \A n \in hs : LET d == Decide27(n, hs, {}, {}) IN ~Replicates(d) /\ d.del = "none"
-NoTasks(hs) == \A n \in hs : ~Replicates(Decide27(n, hs, {}, {}))
-=\* a check "replicates" when it hands the replicator a task with at least one candidate node. (With overlapping
-\* rules the code as found keeps calling the replicator with an EMPTY candidate list: a holder remembered from
-\* an earlier rule does not lower the shortage of a later rule - a phantom shortage that copies nothing.)
-Replicates(d) == \E k \in 1..Len(d.tasks) : Len(d.tasks[k].nodes) > 0
-Quiet(hs) == \A n \in hs : LET d == Decide27(n, hs, {}, {}) IN ~Replicates(d) /\ d.del = "none"
-NoTasks(hs) == \A n \in hs : ~Replicates(Decide27(n, hs, {}, {}))
-=\* a check "replicates" when it hands the replicator a task with at least one candidate node. (With overlapping
-\* rules the code as found keeps calling the replicator with an EMPTY candidate list: a holder remembered from
-\* an earlier rule does not lower the shortage of a later rule - a phantom shortage that copies nothing.)
-Replicates(d) == \E k \in 1..Len(d.tasks) : Len(d.tasks[k].nodes) > 0
-Quiet(hs) == \A n \in hs : LET d == Decide27(n, hs, {}, {}) IN ~Replicates(d) /\ d.del = "none"
-NoTasks(hs) == \A n \in hs : ~Replicates(Decide27(n, hs, {}, {}))
-=\* a check "replicates" when it hands the replicator a task with at least one candidate node. (With overlapping
-\* rules the code as found keeps calling the replicator with an EMPTY candidate list: a holder remembered from
-\* an earlier rule does not lower the shortage of a later rule - a phantom shortage that copies nothing.)
-Replicates(d) == \E k \in 1..Len(d.tasks) : Len(d.tasks[k].nodes) > 0
-Quiet(hs) == \A n \in hs : LET d == Decide27(n, hs, {}, {}) IN ~Replicates(d) /\ d.del = "none"
-NoTasks(hs) == \A n \in hs : ~Replicates(Decide27(n, hs, {}, {}))
-=\* a check "replicates" when it hands the replicator a task with at least one candidate node. (With overlapping
-\* rules the code as found keeps calling the replicator with an EMPTY candidate list: a holder remembered from
-\* an earlier rule does not lower the shortage of a later rule - a phantom shortage that copies nothing.)
-Replicates(d) == \E k \in 1..Len(d.tasks) : Len(d.tasks[k].nodes) > 0
-Quiet(hs) == \A n \in hs : LET d == Decide27(n, hs, {}, {}) IN ~Replicates(d) /\ d.del = "none"
-NoTasks(hs) == \A n \in hs : ~Replicates(Decide27(n, hs, {}, {}))
-=\* a check "replicates" when it hands the replicator a task with at least one candidate node. (With overlapping
-\* rules the code as found keeps calling the replicator with an EMPTY candidate list: a holder remembered from
-\* an earlier rule does not lower the shortage of a later rule - a phantom shortage that copies nothing.)
-Replicates(d) == \E k \in 1..Len(d.tasks) : Len(d.tasks[k].nodes) > 0
-Quiet(hs) == \A n \in hs : LET d == Decide27(n, hs, {}, {}) IN ~Replicates(d) /\ d.del = "none"
-NoTasks(hs) == \A n \in hs : ~Replicates(Decide27(n, hs, {}, {}))
-=\* a check "replicates" when it hands the replicator a task with at least one candidate node. (With overlapping
-\* rules the code as found keeps calling the replicator with an EMPTY candidate list: a holder remembered from
-\* an earlier rule does not lower the shortage of a later rule - a phantom shortage that copies nothing.)
-Replicates(d) == \E k \in 1..Len(d.tasks) : Len(d.tasks[k].nodes) > 0
-Quiet(hs) == \A n \in hs : LET d == Decide27(n, hs, {}, {}) IN ~Replicates(d) /\ d.del = "none"
-NoTasks(hs) == \A n \in hs : ~Replicates(Decide27(n, hs, {}, {}))
-=\* a check "replicates" when it hands the replicator a task with at least one candidate node. (With overlapping
-\* rules the code as found keeps calling the replicator with an EMPTY candidate list: a holder remembered from
-\* an earlier rule does not lower the shortage of a later rule - a phantom shortage that copies nothing.)
-Replicates(d) == \E k \in 1..Len(d.tasks) : Len(d.tasks[k].nodes) > 0
-Quiet(hs) == \A n \in hs : LET d == Decide27(n, hs, {}, {}) IN ~Replicates(d) /\ d.del = "none"
-NoTasks(hs) == \A n \in hs : ~Replicates(Decide27(n, hs, {}, {}))
-=\* a check "replicates" when it hands the replicator a task with at least one candidate node. (With overlapping
-\* rules the code as found keeps calling the replicator with an EMPTY candidate list: a holder remembered from
-\* an earlier rule does not lower the shortage of a later rule - a phantom shortage that copies nothing.)
-Replicates(d) == \E k \in 1..Len(d.tasks) : Len(d.tasks[k].nodes) > 0
-Quiet(hs) == \A n \in hs : LET d == Decide27(n, hs, {}, {}) IN ~Replicates(d) /\ d.del = "none"
-NoTasks(hs) == \A n \in hs : ~Replicates(Decide27(n, hs, {}, {}))
-=\* a check "replicates" when it hands the replicator a task with at least one candidate node. (With overlapping
-\* rules the code as found keeps calling the replicator with an EMPTY candidate list: a holder remembered from
-\* an earlier rule does not lower the shortage of a later rule - a phantom shortage that copies nothing.)
-Replicates(d) == \E k \in 1..Len(d.tasks) : Len(d.tasks[k].nodes) > 0
-Quiet(hs) == \A n \in hs : LET d == Decide27(n, hs, {}, {}) IN ~Replicates(d) /\ d.del = "none"
-NoTasks(hs) == \A n \in hs : ~Replicates(Decide27(n, hs, {}, {}))
-=\* a check "replicates" when it hands the replicator a task with at least one candidate node. (With overlapping
-\* rules the code as found keeps calling the replicator with an EMPTY candidate list: a holder remembered from
-\* an earlier rule does not lower the shortage of a later rule - a phantom shortage that copies nothing.)
-Replicates(d) == \E k \in 1..Len(d.tasks) : Len(d.tasks[k].nodes) > 0
-Quiet(hs) == \A n \in hs : LET d == Decide27(n, hs, {}, {}) IN ~Replicates(d) /\ d.del = "none"
-NoTasks(hs) == \A n \in hs : ~Replicates(Decide27(n, hs, {}, {}))
-=\* a check "replicates" when it hands the replicator a task with at least one candidate node. (With overlapping
-\* rules the code as found keeps calling the replicator with an EMPTY candidate list: a holder remembered from
-\* an earlier rule does not lower the shortage of a later rule - a phantom shortage that copies nothing.)
-Replicates(d) == \E k \in 1..Len(d.tasks) : Len(d.tasks[k].nodes) > 0
-Quiet(hs) == \A n \in hs : LET d == Decide27(n, hs, {}, {}) IN ~Replicates(d) /\ d.del = "none"
-NoTasks(hs) == \A n \in hs : ~Replicates(Decide27(n, hs, {}, {}))
-=\* a check "replicates" when it hands the replicator a task with at least one candidate node. (With overlapping
-\* rules the code as found keeps calling the replicator with an EMPTY candidate list: a holder remembered from
-\* an earlier rule does not lower the shortage of a later rule - a phantom shortage that copies nothing.)
-Replicates(d) == \E k \in 1..Len(d.tasks) : Len(d.tasks[k].nodes) > 0
-Quiet(hs) == \A n \in hs : LET d == Decide27(n, hs, {}, {}) IN ~Replicates(d) /\ d.del = "none"
-NoTasks(hs) == \A n \in hs : ~Replicates(Decide27(n, hs, {}, {}))
-=\* a check "replicates" when it hands the replicator a task with at least one candidate node. (With overlapping
-\* rules the code as found keeps calling the replicator with an EMPTY candidate list: a holder remembered from
-\* an earlier rule does not lower the shortage of a later rule - a phantom shortage that copies nothing.)
-Replicates(d) == \E k \in 1..Len(d.tasks) : Len(d.tasks[k].nodes) > 0
-Quiet(hs) == \A n \in hs : LET d == Decide27(n, hs, {}, {}) IN ~Replicates(d) /\ d.del = "none"
-NoTasks(hs) == \A n \in hs : ~Replicates(Decide27(n, hs, {}, {}))
-=\* a check "replicates" when it hands the replicator a task with at least one candidate node. (With overlapping
-\* rules the code as found keeps calling the replicator with an EMPTY candidate list: a holder remembered from
-\* an earlier rule does not lower the shortage of a later rule - a phantom shortage that copies nothing.)
-Replicates(d) == \E k \in 1..Len(d.tasks) : Len(d.tasks[k].nodes) > 0
-Quiet(hs) == \A n \in hs : LET d == Decide27(n, hs, {}, {}) IN ~Replicates(d) /\ d.del = "none"
-NoTasks(hs) == \A n \in hs : ~Replicates(Decide27(n, hs, {}, {}))
-=\* a check "replicates" when it hands the replicator a task with at least one candidate node. (With overlapping
-\* rules the code as found keeps calling the replicator with an EMPTY candidate list: a holder remembered from
-\* an earlier rule does not lower the shortage of a later rule - a phantom shortage that copies nothing.)
-Replicates(d) == \E k \in 1..Len(d.tasks) : Len(d.tasks[k].nodes) > 0
-Quiet(hs) == \A n \in hs : LET d == Decide27(n, hs, {}, {}) IN ~Replicates(d) /\ d.del = "none"
-NoTasks(hs) == \A n \in hs : ~Replicates(Decide27(n, hs, {}, {}))
-=\* a check "replicates" when it hands the replicator a task with at least one candidate node. (With overlapping
-\* rules the code as found keeps calling the replicator with an EMPTY candidate list: a holder remembered from
-\* an earlier rule does not lower the shortage of a later rule - a phantom shortage that copies nothing.)
-Replicates(d) == \E k \in 1..Len(d.tasks) : Len(d.tasks[k].nodes) > 0
-Quiet(hs) == \A n \in hs : LET d == Decide27(n, hs, {}, {}) IN ~Replicates(d) /\ d.del = "none"
-NoTasks(hs) == \A n \in hs : ~Replicates(Decide27(n, hs, {}, {}))
-=\* a check "replicates" when it hands the replicator a task with at least one candidate node. (With overlapping
-\* rules the code as found keeps calling the replicator with an EMPTY candidate list: a holder remembered from
-\* an earlier rule does not lower the shortage of a later rule - a phantom shortage that copies nothing.)
-Replicates(d) == \E k \in 1..Len(d.tasks) : Len(d.tasks[k].nodes) > 0
-Quiet(hs) == \A n \in hs : LET d == Decide27(n, hs, {}, {}) IN ~Replicates(d) /\ d.del = "none"
-NoTasks(hs) == \A n \in hs : ~Replicates(Decide27(n, hs, {}, {}))
-=\* a check "replicates" when it hands the replicator a task with at least one candidate node. (With overlapping
-\* rules the code as found keeps calling the replicator with an EMPTY candidate list: a holder remembered from
-\* an earlier rule does not lower the shortage of a later rule - a phantom shortage that copies nothing.)
-Replicates(d) == \E k \in 1..Len(d.tasks) : Len(d.tasks[k].nodes) > 0
-Quiet(hs) == \A n \in hs : LET d == Decide27(n, hs, {}, {}) IN ~Replicates(d) /\ d.del = "none"
-NoTasks(hs) == \A n \in hs : ~Replicates(Decide27(n, hs, {}, {}))
-=\* a check "replicates" when it hands the replicator a task with at least one candidate node. (With overlapping
-\* rules the code as found keeps calling the replicator with an EMPTY candidate list: a holder remembered from
-\* an earlier rule does not lower the shortage of a later rule - a phantom shortage that copies nothing.)
-Replicates(d) == \E k \in 1..Len(d.tasks) : Len(d.tasks[k].nodes) > 0
-Quiet(hs) == \A n \in hs : LET d == Decide27(n, hs, {}, {}) IN ~Replicates(d) /\ d.del = "none"
-NoTasks(hs) == \A n \in hs : ~Replicates(Decide27(n, hs, {}, {}))
-=\* a check "replicates" when it hands the replicator a task with at least one candidate node. (With overlapping
-\* rules the code as found keeps calling the replicator with an EMPTY candidate list: a holder remembered from
-\* an earlier rule does not lower the shortage of a later rule - a phantom shortage that copies nothing.)
-Replicates(d) == \E k \in 1..Len(d.tasks) : Len(d.tasks[k].nodes) > 0
-Quiet(hs) == \A n \in hs : LET d == Decide27(n, hs, {}, {}) IN ~Replicates(d) /\ d.del = "none"
-NoTasks(hs) == \A n \in hs : ~Replicates(Decide27(n, hs, {}, {}))
-=\* a check "replicates" when it hands the replicator a task with at least one candidate node. (With overlapping
-\* rules the code as found keeps calling the replicator with an EMPTY candidate list: a holder remembered from
-\* an earlier rule does not lower the shortage of a later rule - a phantom shortage that copies nothing.)
-Replicates(d) == \E k \in 1..Len(d.tasks) : Len(d.tasks[k].nodes) > 0
-Quiet(hs) == \A n \in hs : LET d == Decide27(n, hs, {}, {}) IN ~Replicates(d) /\ d.del = "none"
-NoTasks(hs) == \A n \in hs : ~Replicates(Decide27(n, hs, {}, {}))
-=\* a check "replicates" when it hands the replicator a task with at least one candidate node. (With overlapping
-\* rules the code as found keeps calling the replicator with an EMPTY candidate list: a holder remembered from
-\* an earlier rule does not lower the shortage of a later rule - a phantom shortage that copies nothing.)
-Replicates(d) == \E k \in 1..Len(d.tasks) : Len(d.tasks[k].nodes) > 0
-Quiet(hs) == \A n \in hs : LET d == Decide27(n, hs, {}, {}) IN ~Replicates(d) /\ d.del = "none"
-NoTasks(hs) == \A n \in hs : ~Replicates(Decide27(n, hs, {}, {}))
-=\* a check "replicates" when it hands the replicator a task with at least one candidate node. (With overlapping
-\* rules the code as found keeps calling the replicator with an EMPTY candidate list: a holder remembered from
-\* an earlier rule does not lower the shortage of a later rule - a phantom shortage that copies nothing.)
-Replicates(d) == \E k \in 1..Len(d.tasks) : Len(d.tasks[k].nodes) > 0
-Quiet(hs) == \A n \in hs : LET d == Decide27(n, hs, {}, {}) IN ~Replicates(d) /\ d.del = "none"
-NoTasks(hs) == \A n \in hs : ~Replicates(Decide27(n, hs, {}, {}))
-=\* a check "replicates" when it hands the replicator a task with at least one candidate node. (With overlapping
-\* rules the code as found keeps calling the replicator with an EMPTY candidate list: a holder remembered from
-\* an earlier rule does not lower the shortage of a later rule - a phantom shortage that copies nothing.)
-Replicates(d) == \E k \in 1..Len(d.tasks) : Len(d.tasks[k].nodes) > 0
-Quiet(hs) == \A n \in hs : LET d == Decide27(n, hs, {}, {}) IN ~Replicates(d) /\ d.del = "none"
-NoTasks(hs) == \A n \in hs : ~Replicates(Decide27(n, hs, {}, {}))
-=\* a check "replicates" when it hands the replicator a task with at least one candidate node. (With overlapping
-\* rules the code as found keeps calling the replicator with an EMPTY candidate list: a holder remembered from
-\* an earlier rule does not lower the shortage of a later rule - a phantom shortage that copies nothing.)
-Replicates(d) == \E k \in 1..Len(d.tasks) : Len(d.tasks[k].nodes) > 0
-Quiet(hs) == \A n \in hs : LET d == Decide27(n, hs, {}, {}) IN ~Replicates(d) /\ d.del = "none"
-NoTasks(hs) == \A n \in hs : ~Replicates(Decide27(n, hs, {}, {}))
-=\* a check "replicates" when it hands the replicator a task with at least one candidate node. (With overlapping
-\* rules the code as found keeps calling the replicator with an EMPTY candidate list: a holder remembered from
-\* an earlier rule does not lower the shortage of a later rule - a phantom shortage that copies nothing.)
-Replicates(d) == \E k \in 1..Len(d.tasks) : Len(d.tasks[k].nodes) > 0
-Quiet(hs) == \A n \in hs : LET d == Decide27(n, hs, {}, {}) IN ~Replicates(d) /\ d.del = "none"
-NoTasks(hs) == \A n \in hs : ~Replicates(Decide27(n, hs, {}, {}))
+Converged == Primaries \subseteq holders /\ NoTasks(holders)
 
-\* a check "replicates" when it hands the replicator a task with at least one candidate node. (With overlapping
-\* rules the code as found keeps calling the replicator with an EMPTY candidate list: a holder remembered from
-\* an earlier rule does not lower the shortage of a later rule - a phantom shortage that copies nothing.)
-Replicates(d) == \E k \in 1..Len(d.tasks) : Len(d.tasks[k].nodes) > 0
-Quiet(hs) == \A n \in hs : LET d == Decide27(n, hs, {}, {}) IN ~Replicates(d) /\ d.del = "none"
-NoTasks(hs) == \A n \in hs : ~Replicates(Decide27(n, hs, {}, {}))
+\* C27, temporal form
+EventuallyConvergedForever == <>[]Converged
+\* C27, bounded form
+ConvergedInTime == round >= MaxRounds => Converged /\ Quiet(holders)
+\* copies are never lost altogether by policing alone
+NeverEmpty == holders # {}
+\* replicator accounting as seen in the last check
+TaskOK == \A k \in 1..Len(last.tasks) :
+            /\ Len(last.tasks[k].ok) <= last.tasks[k].q
+            /\ Range(last.tasks[k].ok) \subseteq Range(last.tasks[k].nodes)
+            /\ Range(last.tasks[k].ok) \subseteq last.stored
+=============================================================================
